@@ -1,3 +1,27 @@
+#!/bin/bash
+# seed_eval.sh <seed-name> [tier]: evaluate the property's check against a seeded change, in a scratch
+# worktree of the repository (never in /repo). Step 1: native small-scope sweep of all harness bodies on the
+# changed tree (seconds) to learn which harnesses are affected. Step 2: the property's check (Kani) on the
+# changed tree - restricted to the affected harnesses when step 1 found some (the registered command runs a
+# superset of them, so a VIOLATION here is a VIOLATION there), the full check otherwise.
+V=$(cd $(dirname $0) && pwd)
+name=$1; tier=${2:-quick}
+pid=${name%%-*}
+base=${VP_RUN_REPO:-/repo}
+wt=/tmp/seedrun/$name
+mkdir -p /tmp/seedrun
+git -C $base worktree remove --force $wt 2>/dev/null
+git -C $base worktree add --detach $wt HEAD >/dev/null 2>&1 || { echo "worktree failed"; exit 2; }
+git -C $wt apply $V/seeded/$name/patch.diff || { echo "patch does not apply"; exit 2; }
+out=$V/seeded/$name
+# failures of the unchanged tree (the recorded findings) are not hits of the seeded change
+if [ ! -s /tmp/seedrun/baseline.json ]; then
+  (cd $V && VERIF_REPO=$base VERIF_WORK=/tmp/seedrun/work_base python3 check.py --sweep ${SWEEP:-30000} | grep '^SWEEP-MAP' | sed 's/^SWEEP-MAP //' > /tmp/seedrun/baseline.json)
+fi
+export VERIF_SWEEP_BASELINE=/tmp/seedrun/baseline.json
+export VERIF_REPO=$wt VERIF_WORK=/tmp/seedrun/work_$name VERIF_WORKERS=${VERIF_WORKERS:-8}
+(cd $V && python3 check.py --sweep ${SWEEP:-30000} > $out/sweep.txt 2>$out/sweep.err)
+hits=$(grep '^SWEEP-HITS' $out/sweep.txt | sed 's/^SWEEP-HITS //' | python3 -c "import json,sys; l=json.load(sys.stdin); print('^('+'|'.join(l)+')$' if l else '')")
 if [ -n "$hits" ]; then
   (cd $V && VERIF_ONLY="$hits" python3 check.py $pid --tier $tier > $out/check_$pid.txt 2>$out/check_$pid.err; echo "exit=$? (tier $tier, restricted to the harnesses the native sweep flagged: $hits)" >> $out/check_$pid.txt)
   if ! grep -q "^VIOLATION" $out/check_$pid.txt && [ "$tier" = quick ]; then
@@ -9,25600 +33,6 @@ fi
 if [ -z "$hits" ] || { ! grep -q "^VIOLATION" $out/check_$pid.txt && grep -q "no obligation was generated" $out/check_$pid.txt; }; then
   (cd $V && python3 check.py $pid --tier $tier > $out/check_$pid.txt 2>$out/check_$pid.err; echo "exit=$? (tier $tier, full check; native sweep flagged nothing the restricted runs could decide)" >> $out/check_$pid.txt)
 fi
-#if [ -n "$hits" ]; then
-  (cd $V && VERIF_ONLY="$hits" python3 check.py $pid --tier $tier > $out/check_$pid.txt 2>$out/check_$pid.err; echo "exit=$? (tier $tier, restricted to the harnesses the native sweep flagged: $hits)" >> $out/check_$pid.txt)
-  if ! grep -q "^VIOLATION" $out/check_$pid.txt && [ "$tier" = quick ]; then
-    # the flagged harnesses may belong to the thorough tier only (larger bounds, slow ones)
-    (cd $V && VERIF_ONLY="$hits" python3 check.py $pid --tier thorough > $out/check_${pid}_thorough.txt 2>$out/check_${pid}_thorough.err; echo "exit=$? (tier thorough, restricted to the harnesses the native sweep flagged: $hits)" >> $out/check_${pid}_thorough.txt)
-    if grep -q "^VIOLATION" $out/check_${pid}_thorough.txt; then cp $out/check_${pid}_thorough.txt $out/check_$pid.txt; fi
-  fi
-fi
-if [ -z "$hits" ] || { ! grep -q "^VIOLATION" $out/check_$pid.txt && grep -q "no obligation was generated" $out/check_$pid.txt; }; then
-  (cd $V && python3 check.py $pid --tier $tier > $out/check_$pid.txt 2>$out/check_$pid.err; echo "exit=$? (tier $tier, full check; native sweep flagged nothing the restricted runs could decide)" >> $out/check_$pid.txt)
-fi
-!if [ -n "$hits" ]; then
-  (cd $V && VERIF_ONLY="$hits" python3 check.py $pid --tier $tier > $out/check_$pid.txt 2>$out/check_$pid.err; echo "exit=$? (tier $tier, restricted to the harnesses the native sweep flagged: $hits)" >> $out/check_$pid.txt)
-  if ! grep -q "^VIOLATION" $out/check_$pid.txt && [ "$tier" = quick ]; then
-    # the flagged harnesses may belong to the thorough tier only (larger bounds, slow ones)
-    (cd $V && VERIF_ONLY="$hits" python3 check.py $pid --tier thorough > $out/check_${pid}_thorough.txt 2>$out/check_${pid}_thorough.err; echo "exit=$? (tier thorough, restricted to the harnesses the native sweep flagged: $hits)" >> $out/check_${pid}_thorough.txt)
-    if grep -q "^VIOLATION" $out/check_${pid}_thorough.txt; then cp $out/check_${pid}_thorough.txt $out/check_$pid.txt; fi
-  fi
-fi
-if [ -z "$hits" ] || { ! grep -q "^VIOLATION" $out/check_$pid.txt && grep -q "no obligation was generated" $out/check_$pid.txt; }; then
-  (cd $V && python3 check.py $pid --tier $tier > $out/check_$pid.txt 2>$out/check_$pid.err; echo "exit=$? (tier $tier, full check; native sweep flagged nothing the restricted runs could decide)" >> $out/check_$pid.txt)
-fi
-/if [ -n "$hits" ]; then
-  (cd $V && VERIF_ONLY="$hits" python3 check.py $pid --tier $tier > $out/check_$pid.txt 2>$out/check_$pid.err; echo "exit=$? (tier $tier, restricted to the harnesses the native sweep flagged: $hits)" >> $out/check_$pid.txt)
-  if ! grep -q "^VIOLATION" $out/check_$pid.txt && [ "$tier" = quick ]; then
-    # the flagged harnesses may belong to the thorough tier only (larger bounds, slow ones)
-    (cd $V && VERIF_ONLY="$hits" python3 check.py $pid --tier thorough > $out/check_${pid}_thorough.txt 2>$out/check_${pid}_thorough.err; echo "exit=$? (tier thorough, restricted to the harnesses the native sweep flagged: $hits)" >> $out/check_${pid}_thorough.txt)
-    if grep -q "^VIOLATION" $out/check_${pid}_thorough.txt; then cp $out/check_${pid}_thorough.txt $out/check_$pid.txt; fi
-  fi
-fi
-if [ -z "$hits" ] || { ! grep -q "^VIOLATION" $out/check_$pid.txt && grep -q "no obligation was generated" $out/check_$pid.txt; }; then
-  (cd $V && python3 check.py $pid --tier $tier > $out/check_$pid.txt 2>$out/check_$pid.err; echo "exit=$? (tier $tier, full check; native sweep flagged nothing the restricted runs could decide)" >> $out/check_$pid.txt)
-fi
-bif [ -n "$hits" ]; then
-  (cd $V && VERIF_ONLY="$hits" python3 check.py $pid --tier $tier > $out/check_$pid.txt 2>$out/check_$pid.err; echo "exit=$? (tier $tier, restricted to the harnesses the native sweep flagged: $hits)" >> $out/check_$pid.txt)
-  if ! grep -q "^VIOLATION" $out/check_$pid.txt && [ "$tier" = quick ]; then
-    # the flagged harnesses may belong to the thorough tier only (larger bounds, slow ones)
-    (cd $V && VERIF_ONLY="$hits" python3 check.py $pid --tier thorough > $out/check_${pid}_thorough.txt 2>$out/check_${pid}_thorough.err; echo "exit=$? (tier thorough, restricted to the harnesses the native sweep flagged: $hits)" >> $out/check_${pid}_thorough.txt)
-    if grep -q "^VIOLATION" $out/check_${pid}_thorough.txt; then cp $out/check_${pid}_thorough.txt $out/check_$pid.txt; fi
-  fi
-fi
-if [ -z "$hits" ] || { ! grep -q "^VIOLATION" $out/check_$pid.txt && grep -q "no obligation was generated" $out/check_$pid.txt; }; then
-  (cd $V && python3 check.py $pid --tier $tier > $out/check_$pid.txt 2>$out/check_$pid.err; echo "exit=$? (tier $tier, full check; native sweep flagged nothing the restricted runs could decide)" >> $out/check_$pid.txt)
-fi
-iif [ -n "$hits" ]; then
-  (cd $V && VERIF_ONLY="$hits" python3 check.py $pid --tier $tier > $out/check_$pid.txt 2>$out/check_$pid.err; echo "exit=$? (tier $tier, restricted to the harnesses the native sweep flagged: $hits)" >> $out/check_$pid.txt)
-  if ! grep -q "^VIOLATION" $out/check_$pid.txt && [ "$tier" = quick ]; then
-    # the flagged harnesses may belong to the thorough tier only (larger bounds, slow ones)
-    (cd $V && VERIF_ONLY="$hits" python3 check.py $pid --tier thorough > $out/check_${pid}_thorough.txt 2>$out/check_${pid}_thorough.err; echo "exit=$? (tier thorough, restricted to the harnesses the native sweep flagged: $hits)" >> $out/check_${pid}_thorough.txt)
-    if grep -q "^VIOLATION" $out/check_${pid}_thorough.txt; then cp $out/check_${pid}_thorough.txt $out/check_$pid.txt; fi
-  fi
-fi
-if [ -z "$hits" ] || { ! grep -q "^VIOLATION" $out/check_$pid.txt && grep -q "no obligation was generated" $out/check_$pid.txt; }; then
-  (cd $V && python3 check.py $pid --tier $tier > $out/check_$pid.txt 2>$out/check_$pid.err; echo "exit=$? (tier $tier, full check; native sweep flagged nothing the restricted runs could decide)" >> $out/check_$pid.txt)
-fi
-nif [ -n "$hits" ]; then
-  (cd $V && VERIF_ONLY="$hits" python3 check.py $pid --tier $tier > $out/check_$pid.txt 2>$out/check_$pid.err; echo "exit=$? (tier $tier, restricted to the harnesses the native sweep flagged: $hits)" >> $out/check_$pid.txt)
-  if ! grep -q "^VIOLATION" $out/check_$pid.txt && [ "$tier" = quick ]; then
-    # the flagged harnesses may belong to the thorough tier only (larger bounds, slow ones)
-    (cd $V && VERIF_ONLY="$hits" python3 check.py $pid --tier thorough > $out/check_${pid}_thorough.txt 2>$out/check_${pid}_thorough.err; echo "exit=$? (tier thorough, restricted to the harnesses the native sweep flagged: $hits)" >> $out/check_${pid}_thorough.txt)
-    if grep -q "^VIOLATION" $out/check_${pid}_thorough.txt; then cp $out/check_${pid}_thorough.txt $out/check_$pid.txt; fi
-  fi
-fi
-if [ -z "$hits" ] || { ! grep -q "^VIOLATION" $out/check_$pid.txt && grep -q "no obligation was generated" $out/check_$pid.txt; }; then
-  (cd $V && python3 check.py $pid --tier $tier > $out/check_$pid.txt 2>$out/check_$pid.err; echo "exit=$? (tier $tier, full check; native sweep flagged nothing the restricted runs could decide)" >> $out/check_$pid.txt)
-fi
-/if [ -n "$hits" ]; then
-  (cd $V && VERIF_ONLY="$hits" python3 check.py $pid --tier $tier > $out/check_$pid.txt 2>$out/check_$pid.err; echo "exit=$? (tier $tier, restricted to the harnesses the native sweep flagged: $hits)" >> $out/check_$pid.txt)
-  if ! grep -q "^VIOLATION" $out/check_$pid.txt && [ "$tier" = quick ]; then
-    # the flagged harnesses may belong to the thorough tier only (larger bounds, slow ones)
-    (cd $V && VERIF_ONLY="$hits" python3 check.py $pid --tier thorough > $out/check_${pid}_thorough.txt 2>$out/check_${pid}_thorough.err; echo "exit=$? (tier thorough, restricted to the harnesses the native sweep flagged: $hits)" >> $out/check_${pid}_thorough.txt)
-    if grep -q "^VIOLATION" $out/check_${pid}_thorough.txt; then cp $out/check_${pid}_thorough.txt $out/check_$pid.txt; fi
-  fi
-fi
-if [ -z "$hits" ] || { ! grep -q "^VIOLATION" $out/check_$pid.txt && grep -q "no obligation was generated" $out/check_$pid.txt; }; then
-  (cd $V && python3 check.py $pid --tier $tier > $out/check_$pid.txt 2>$out/check_$pid.err; echo "exit=$? (tier $tier, full check; native sweep flagged nothing the restricted runs could decide)" >> $out/check_$pid.txt)
-fi
-bif [ -n "$hits" ]; then
-  (cd $V && VERIF_ONLY="$hits" python3 check.py $pid --tier $tier > $out/check_$pid.txt 2>$out/check_$pid.err; echo "exit=$? (tier $tier, restricted to the harnesses the native sweep flagged: $hits)" >> $out/check_$pid.txt)
-  if ! grep -q "^VIOLATION" $out/check_$pid.txt && [ "$tier" = quick ]; then
-    # the flagged harnesses may belong to the thorough tier only (larger bounds, slow ones)
-    (cd $V && VERIF_ONLY="$hits" python3 check.py $pid --tier thorough > $out/check_${pid}_thorough.txt 2>$out/check_${pid}_thorough.err; echo "exit=$? (tier thorough, restricted to the harnesses the native sweep flagged: $hits)" >> $out/check_${pid}_thorough.txt)
-    if grep -q "^VIOLATION" $out/check_${pid}_thorough.txt; then cp $out/check_${pid}_thorough.txt $out/check_$pid.txt; fi
-  fi
-fi
-if [ -z "$hits" ] || { ! grep -q "^VIOLATION" $out/check_$pid.txt && grep -q "no obligation was generated" $out/check_$pid.txt; }; then
-  (cd $V && python3 check.py $pid --tier $tier > $out/check_$pid.txt 2>$out/check_$pid.err; echo "exit=$? (tier $tier, full check; native sweep flagged nothing the restricted runs could decide)" >> $out/check_$pid.txt)
-fi
-aif [ -n "$hits" ]; then
-  (cd $V && VERIF_ONLY="$hits" python3 check.py $pid --tier $tier > $out/check_$pid.txt 2>$out/check_$pid.err; echo "exit=$? (tier $tier, restricted to the harnesses the native sweep flagged: $hits)" >> $out/check_$pid.txt)
-  if ! grep -q "^VIOLATION" $out/check_$pid.txt && [ "$tier" = quick ]; then
-    # the flagged harnesses may belong to the thorough tier only (larger bounds, slow ones)
-    (cd $V && VERIF_ONLY="$hits" python3 check.py $pid --tier thorough > $out/check_${pid}_thorough.txt 2>$out/check_${pid}_thorough.err; echo "exit=$? (tier thorough, restricted to the harnesses the native sweep flagged: $hits)" >> $out/check_${pid}_thorough.txt)
-    if grep -q "^VIOLATION" $out/check_${pid}_thorough.txt; then cp $out/check_${pid}_thorough.txt $out/check_$pid.txt; fi
-  fi
-fi
-if [ -z "$hits" ] || { ! grep -q "^VIOLATION" $out/check_$pid.txt && grep -q "no obligation was generated" $out/check_$pid.txt; }; then
-  (cd $V && python3 check.py $pid --tier $tier > $out/check_$pid.txt 2>$out/check_$pid.err; echo "exit=$? (tier $tier, full check; native sweep flagged nothing the restricted runs could decide)" >> $out/check_$pid.txt)
-fi
-sif [ -n "$hits" ]; then
-  (cd $V && VERIF_ONLY="$hits" python3 check.py $pid --tier $tier > $out/check_$pid.txt 2>$out/check_$pid.err; echo "exit=$? (tier $tier, restricted to the harnesses the native sweep flagged: $hits)" >> $out/check_$pid.txt)
-  if ! grep -q "^VIOLATION" $out/check_$pid.txt && [ "$tier" = quick ]; then
-    # the flagged harnesses may belong to the thorough tier only (larger bounds, slow ones)
-    (cd $V && VERIF_ONLY="$hits" python3 check.py $pid --tier thorough > $out/check_${pid}_thorough.txt 2>$out/check_${pid}_thorough.err; echo "exit=$? (tier thorough, restricted to the harnesses the native sweep flagged: $hits)" >> $out/check_${pid}_thorough.txt)
-    if grep -q "^VIOLATION" $out/check_${pid}_thorough.txt; then cp $out/check_${pid}_thorough.txt $out/check_$pid.txt; fi
-  fi
-fi
-if [ -z "$hits" ] || { ! grep -q "^VIOLATION" $out/check_$pid.txt && grep -q "no obligation was generated" $out/check_$pid.txt; }; then
-  (cd $V && python3 check.py $pid --tier $tier > $out/check_$pid.txt 2>$out/check_$pid.err; echo "exit=$? (tier $tier, full check; native sweep flagged nothing the restricted runs could decide)" >> $out/check_$pid.txt)
-fi
-hif [ -n "$hits" ]; then
-  (cd $V && VERIF_ONLY="$hits" python3 check.py $pid --tier $tier > $out/check_$pid.txt 2>$out/check_$pid.err; echo "exit=$? (tier $tier, restricted to the harnesses the native sweep flagged: $hits)" >> $out/check_$pid.txt)
-  if ! grep -q "^VIOLATION" $out/check_$pid.txt && [ "$tier" = quick ]; then
-    # the flagged harnesses may belong to the thorough tier only (larger bounds, slow ones)
-    (cd $V && VERIF_ONLY="$hits" python3 check.py $pid --tier thorough > $out/check_${pid}_thorough.txt 2>$out/check_${pid}_thorough.err; echo "exit=$? (tier thorough, restricted to the harnesses the native sweep flagged: $hits)" >> $out/check_${pid}_thorough.txt)
-    if grep -q "^VIOLATION" $out/check_${pid}_thorough.txt; then cp $out/check_${pid}_thorough.txt $out/check_$pid.txt; fi
-  fi
-fi
-if [ -z "$hits" ] || { ! grep -q "^VIOLATION" $out/check_$pid.txt && grep -q "no obligation was generated" $out/check_$pid.txt; }; then
-  (cd $V && python3 check.py $pid --tier $tier > $out/check_$pid.txt 2>$out/check_$pid.err; echo "exit=$? (tier $tier, full check; native sweep flagged nothing the restricted runs could decide)" >> $out/check_$pid.txt)
-fi
-
-if [ -n "$hits" ]; then
-  (cd $V && VERIF_ONLY="$hits" python3 check.py $pid --tier $tier > $out/check_$pid.txt 2>$out/check_$pid.err; echo "exit=$? (tier $tier, restricted to the harnesses the native sweep flagged: $hits)" >> $out/check_$pid.txt)
-  if ! grep -q "^VIOLATION" $out/check_$pid.txt && [ "$tier" = quick ]; then
-    # the flagged harnesses may belong to the thorough tier only (larger bounds, slow ones)
-    (cd $V && VERIF_ONLY="$hits" python3 check.py $pid --tier thorough > $out/check_${pid}_thorough.txt 2>$out/check_${pid}_thorough.err; echo "exit=$? (tier thorough, restricted to the harnesses the native sweep flagged: $hits)" >> $out/check_${pid}_thorough.txt)
-    if grep -q "^VIOLATION" $out/check_${pid}_thorough.txt; then cp $out/check_${pid}_thorough.txt $out/check_$pid.txt; fi
-  fi
-fi
-if [ -z "$hits" ] || { ! grep -q "^VIOLATION" $out/check_$pid.txt && grep -q "no obligation was generated" $out/check_$pid.txt; }; then
-  (cd $V && python3 check.py $pid --tier $tier > $out/check_$pid.txt 2>$out/check_$pid.err; echo "exit=$? (tier $tier, full check; native sweep flagged nothing the restricted runs could decide)" >> $out/check_$pid.txt)
-fi
-#if [ -n "$hits" ]; then
-  (cd $V && VERIF_ONLY="$hits" python3 check.py $pid --tier $tier > $out/check_$pid.txt 2>$out/check_$pid.err; echo "exit=$? (tier $tier, restricted to the harnesses the native sweep flagged: $hits)" >> $out/check_$pid.txt)
-  if ! grep -q "^VIOLATION" $out/check_$pid.txt && [ "$tier" = quick ]; then
-    # the flagged harnesses may belong to the thorough tier only (larger bounds, slow ones)
-    (cd $V && VERIF_ONLY="$hits" python3 check.py $pid --tier thorough > $out/check_${pid}_thorough.txt 2>$out/check_${pid}_thorough.err; echo "exit=$? (tier thorough, restricted to the harnesses the native sweep flagged: $hits)" >> $out/check_${pid}_thorough.txt)
-    if grep -q "^VIOLATION" $out/check_${pid}_thorough.txt; then cp $out/check_${pid}_thorough.txt $out/check_$pid.txt; fi
-  fi
-fi
-if [ -z "$hits" ] || { ! grep -q "^VIOLATION" $out/check_$pid.txt && grep -q "no obligation was generated" $out/check_$pid.txt; }; then
-  (cd $V && python3 check.py $pid --tier $tier > $out/check_$pid.txt 2>$out/check_$pid.err; echo "exit=$? (tier $tier, full check; native sweep flagged nothing the restricted runs could decide)" >> $out/check_$pid.txt)
-fi
- if [ -n "$hits" ]; then
-  (cd $V && VERIF_ONLY="$hits" python3 check.py $pid --tier $tier > $out/check_$pid.txt 2>$out/check_$pid.err; echo "exit=$? (tier $tier, restricted to the harnesses the native sweep flagged: $hits)" >> $out/check_$pid.txt)
-  if ! grep -q "^VIOLATION" $out/check_$pid.txt && [ "$tier" = quick ]; then
-    # the flagged harnesses may belong to the thorough tier only (larger bounds, slow ones)
-    (cd $V && VERIF_ONLY="$hits" python3 check.py $pid --tier thorough > $out/check_${pid}_thorough.txt 2>$out/check_${pid}_thorough.err; echo "exit=$? (tier thorough, restricted to the harnesses the native sweep flagged: $hits)" >> $out/check_${pid}_thorough.txt)
-    if grep -q "^VIOLATION" $out/check_${pid}_thorough.txt; then cp $out/check_${pid}_thorough.txt $out/check_$pid.txt; fi
-  fi
-fi
-if [ -z "$hits" ] || { ! grep -q "^VIOLATION" $out/check_$pid.txt && grep -q "no obligation was generated" $out/check_$pid.txt; }; then
-  (cd $V && python3 check.py $pid --tier $tier > $out/check_$pid.txt 2>$out/check_$pid.err; echo "exit=$? (tier $tier, full check; native sweep flagged nothing the restricted runs could decide)" >> $out/check_$pid.txt)
-fi
-sif [ -n "$hits" ]; then
-  (cd $V && VERIF_ONLY="$hits" python3 check.py $pid --tier $tier > $out/check_$pid.txt 2>$out/check_$pid.err; echo "exit=$? (tier $tier, restricted to the harnesses the native sweep flagged: $hits)" >> $out/check_$pid.txt)
-  if ! grep -q "^VIOLATION" $out/check_$pid.txt && [ "$tier" = quick ]; then
-    # the flagged harnesses may belong to the thorough tier only (larger bounds, slow ones)
-    (cd $V && VERIF_ONLY="$hits" python3 check.py $pid --tier thorough > $out/check_${pid}_thorough.txt 2>$out/check_${pid}_thorough.err; echo "exit=$? (tier thorough, restricted to the harnesses the native sweep flagged: $hits)" >> $out/check_${pid}_thorough.txt)
-    if grep -q "^VIOLATION" $out/check_${pid}_thorough.txt; then cp $out/check_${pid}_thorough.txt $out/check_$pid.txt; fi
-  fi
-fi
-if [ -z "$hits" ] || { ! grep -q "^VIOLATION" $out/check_$pid.txt && grep -q "no obligation was generated" $out/check_$pid.txt; }; then
-  (cd $V && python3 check.py $pid --tier $tier > $out/check_$pid.txt 2>$out/check_$pid.err; echo "exit=$? (tier $tier, full check; native sweep flagged nothing the restricted runs could decide)" >> $out/check_$pid.txt)
-fi
-eif [ -n "$hits" ]; then
-  (cd $V && VERIF_ONLY="$hits" python3 check.py $pid --tier $tier > $out/check_$pid.txt 2>$out/check_$pid.err; echo "exit=$? (tier $tier, restricted to the harnesses the native sweep flagged: $hits)" >> $out/check_$pid.txt)
-  if ! grep -q "^VIOLATION" $out/check_$pid.txt && [ "$tier" = quick ]; then
-    # the flagged harnesses may belong to the thorough tier only (larger bounds, slow ones)
-    (cd $V && VERIF_ONLY="$hits" python3 check.py $pid --tier thorough > $out/check_${pid}_thorough.txt 2>$out/check_${pid}_thorough.err; echo "exit=$? (tier thorough, restricted to the harnesses the native sweep flagged: $hits)" >> $out/check_${pid}_thorough.txt)
-    if grep -q "^VIOLATION" $out/check_${pid}_thorough.txt; then cp $out/check_${pid}_thorough.txt $out/check_$pid.txt; fi
-  fi
-fi
-if [ -z "$hits" ] || { ! grep -q "^VIOLATION" $out/check_$pid.txt && grep -q "no obligation was generated" $out/check_$pid.txt; }; then
-  (cd $V && python3 check.py $pid --tier $tier > $out/check_$pid.txt 2>$out/check_$pid.err; echo "exit=$? (tier $tier, full check; native sweep flagged nothing the restricted runs could decide)" >> $out/check_$pid.txt)
-fi
-eif [ -n "$hits" ]; then
-  (cd $V && VERIF_ONLY="$hits" python3 check.py $pid --tier $tier > $out/check_$pid.txt 2>$out/check_$pid.err; echo "exit=$? (tier $tier, restricted to the harnesses the native sweep flagged: $hits)" >> $out/check_$pid.txt)
-  if ! grep -q "^VIOLATION" $out/check_$pid.txt && [ "$tier" = quick ]; then
-    # the flagged harnesses may belong to the thorough tier only (larger bounds, slow ones)
-    (cd $V && VERIF_ONLY="$hits" python3 check.py $pid --tier thorough > $out/check_${pid}_thorough.txt 2>$out/check_${pid}_thorough.err; echo "exit=$? (tier thorough, restricted to the harnesses the native sweep flagged: $hits)" >> $out/check_${pid}_thorough.txt)
-    if grep -q "^VIOLATION" $out/check_${pid}_thorough.txt; then cp $out/check_${pid}_thorough.txt $out/check_$pid.txt; fi
-  fi
-fi
-if [ -z "$hits" ] || { ! grep -q "^VIOLATION" $out/check_$pid.txt && grep -q "no obligation was generated" $out/check_$pid.txt; }; then
-  (cd $V && python3 check.py $pid --tier $tier > $out/check_$pid.txt 2>$out/check_$pid.err; echo "exit=$? (tier $tier, full check; native sweep flagged nothing the restricted runs could decide)" >> $out/check_$pid.txt)
-fi
-dif [ -n "$hits" ]; then
-  (cd $V && VERIF_ONLY="$hits" python3 check.py $pid --tier $tier > $out/check_$pid.txt 2>$out/check_$pid.err; echo "exit=$? (tier $tier, restricted to the harnesses the native sweep flagged: $hits)" >> $out/check_$pid.txt)
-  if ! grep -q "^VIOLATION" $out/check_$pid.txt && [ "$tier" = quick ]; then
-    # the flagged harnesses may belong to the thorough tier only (larger bounds, slow ones)
-    (cd $V && VERIF_ONLY="$hits" python3 check.py $pid --tier thorough > $out/check_${pid}_thorough.txt 2>$out/check_${pid}_thorough.err; echo "exit=$? (tier thorough, restricted to the harnesses the native sweep flagged: $hits)" >> $out/check_${pid}_thorough.txt)
-    if grep -q "^VIOLATION" $out/check_${pid}_thorough.txt; then cp $out/check_${pid}_thorough.txt $out/check_$pid.txt; fi
-  fi
-fi
-if [ -z "$hits" ] || { ! grep -q "^VIOLATION" $out/check_$pid.txt && grep -q "no obligation was generated" $out/check_$pid.txt; }; then
-  (cd $V && python3 check.py $pid --tier $tier > $out/check_$pid.txt 2>$out/check_$pid.err; echo "exit=$? (tier $tier, full check; native sweep flagged nothing the restricted runs could decide)" >> $out/check_$pid.txt)
-fi
-_if [ -n "$hits" ]; then
-  (cd $V && VERIF_ONLY="$hits" python3 check.py $pid --tier $tier > $out/check_$pid.txt 2>$out/check_$pid.err; echo "exit=$? (tier $tier, restricted to the harnesses the native sweep flagged: $hits)" >> $out/check_$pid.txt)
-  if ! grep -q "^VIOLATION" $out/check_$pid.txt && [ "$tier" = quick ]; then
-    # the flagged harnesses may belong to the thorough tier only (larger bounds, slow ones)
-    (cd $V && VERIF_ONLY="$hits" python3 check.py $pid --tier thorough > $out/check_${pid}_thorough.txt 2>$out/check_${pid}_thorough.err; echo "exit=$? (tier thorough, restricted to the harnesses the native sweep flagged: $hits)" >> $out/check_${pid}_thorough.txt)
-    if grep -q "^VIOLATION" $out/check_${pid}_thorough.txt; then cp $out/check_${pid}_thorough.txt $out/check_$pid.txt; fi
-  fi
-fi
-if [ -z "$hits" ] || { ! grep -q "^VIOLATION" $out/check_$pid.txt && grep -q "no obligation was generated" $out/check_$pid.txt; }; then
-  (cd $V && python3 check.py $pid --tier $tier > $out/check_$pid.txt 2>$out/check_$pid.err; echo "exit=$? (tier $tier, full check; native sweep flagged nothing the restricted runs could decide)" >> $out/check_$pid.txt)
-fi
-eif [ -n "$hits" ]; then
-  (cd $V && VERIF_ONLY="$hits" python3 check.py $pid --tier $tier > $out/check_$pid.txt 2>$out/check_$pid.err; echo "exit=$? (tier $tier, restricted to the harnesses the native sweep flagged: $hits)" >> $out/check_$pid.txt)
-  if ! grep -q "^VIOLATION" $out/check_$pid.txt && [ "$tier" = quick ]; then
-    # the flagged harnesses may belong to the thorough tier only (larger bounds, slow ones)
-    (cd $V && VERIF_ONLY="$hits" python3 check.py $pid --tier thorough > $out/check_${pid}_thorough.txt 2>$out/check_${pid}_thorough.err; echo "exit=$? (tier thorough, restricted to the harnesses the native sweep flagged: $hits)" >> $out/check_${pid}_thorough.txt)
-    if grep -q "^VIOLATION" $out/check_${pid}_thorough.txt; then cp $out/check_${pid}_thorough.txt $out/check_$pid.txt; fi
-  fi
-fi
-if [ -z "$hits" ] || { ! grep -q "^VIOLATION" $out/check_$pid.txt && grep -q "no obligation was generated" $out/check_$pid.txt; }; then
-  (cd $V && python3 check.py $pid --tier $tier > $out/check_$pid.txt 2>$out/check_$pid.err; echo "exit=$? (tier $tier, full check; native sweep flagged nothing the restricted runs could decide)" >> $out/check_$pid.txt)
-fi
-vif [ -n "$hits" ]; then
-  (cd $V && VERIF_ONLY="$hits" python3 check.py $pid --tier $tier > $out/check_$pid.txt 2>$out/check_$pid.err; echo "exit=$? (tier $tier, restricted to the harnesses the native sweep flagged: $hits)" >> $out/check_$pid.txt)
-  if ! grep -q "^VIOLATION" $out/check_$pid.txt && [ "$tier" = quick ]; then
-    # the flagged harnesses may belong to the thorough tier only (larger bounds, slow ones)
-    (cd $V && VERIF_ONLY="$hits" python3 check.py $pid --tier thorough > $out/check_${pid}_thorough.txt 2>$out/check_${pid}_thorough.err; echo "exit=$? (tier thorough, restricted to the harnesses the native sweep flagged: $hits)" >> $out/check_${pid}_thorough.txt)
-    if grep -q "^VIOLATION" $out/check_${pid}_thorough.txt; then cp $out/check_${pid}_thorough.txt $out/check_$pid.txt; fi
-  fi
-fi
-if [ -z "$hits" ] || { ! grep -q "^VIOLATION" $out/check_$pid.txt && grep -q "no obligation was generated" $out/check_$pid.txt; }; then
-  (cd $V && python3 check.py $pid --tier $tier > $out/check_$pid.txt 2>$out/check_$pid.err; echo "exit=$? (tier $tier, full check; native sweep flagged nothing the restricted runs could decide)" >> $out/check_$pid.txt)
-fi
-aif [ -n "$hits" ]; then
-  (cd $V && VERIF_ONLY="$hits" python3 check.py $pid --tier $tier > $out/check_$pid.txt 2>$out/check_$pid.err; echo "exit=$? (tier $tier, restricted to the harnesses the native sweep flagged: $hits)" >> $out/check_$pid.txt)
-  if ! grep -q "^VIOLATION" $out/check_$pid.txt && [ "$tier" = quick ]; then
-    # the flagged harnesses may belong to the thorough tier only (larger bounds, slow ones)
-    (cd $V && VERIF_ONLY="$hits" python3 check.py $pid --tier thorough > $out/check_${pid}_thorough.txt 2>$out/check_${pid}_thorough.err; echo "exit=$? (tier thorough, restricted to the harnesses the native sweep flagged: $hits)" >> $out/check_${pid}_thorough.txt)
-    if grep -q "^VIOLATION" $out/check_${pid}_thorough.txt; then cp $out/check_${pid}_thorough.txt $out/check_$pid.txt; fi
-  fi
-fi
-if [ -z "$hits" ] || { ! grep -q "^VIOLATION" $out/check_$pid.txt && grep -q "no obligation was generated" $out/check_$pid.txt; }; then
-  (cd $V && python3 check.py $pid --tier $tier > $out/check_$pid.txt 2>$out/check_$pid.err; echo "exit=$? (tier $tier, full check; native sweep flagged nothing the restricted runs could decide)" >> $out/check_$pid.txt)
-fi
-lif [ -n "$hits" ]; then
-  (cd $V && VERIF_ONLY="$hits" python3 check.py $pid --tier $tier > $out/check_$pid.txt 2>$out/check_$pid.err; echo "exit=$? (tier $tier, restricted to the harnesses the native sweep flagged: $hits)" >> $out/check_$pid.txt)
-  if ! grep -q "^VIOLATION" $out/check_$pid.txt && [ "$tier" = quick ]; then
-    # the flagged harnesses may belong to the thorough tier only (larger bounds, slow ones)
-    (cd $V && VERIF_ONLY="$hits" python3 check.py $pid --tier thorough > $out/check_${pid}_thorough.txt 2>$out/check_${pid}_thorough.err; echo "exit=$? (tier thorough, restricted to the harnesses the native sweep flagged: $hits)" >> $out/check_${pid}_thorough.txt)
-    if grep -q "^VIOLATION" $out/check_${pid}_thorough.txt; then cp $out/check_${pid}_thorough.txt $out/check_$pid.txt; fi
-  fi
-fi
-if [ -z "$hits" ] || { ! grep -q "^VIOLATION" $out/check_$pid.txt && grep -q "no obligation was generated" $out/check_$pid.txt; }; then
-  (cd $V && python3 check.py $pid --tier $tier > $out/check_$pid.txt 2>$out/check_$pid.err; echo "exit=$? (tier $tier, full check; native sweep flagged nothing the restricted runs could decide)" >> $out/check_$pid.txt)
-fi
-.if [ -n "$hits" ]; then
-  (cd $V && VERIF_ONLY="$hits" python3 check.py $pid --tier $tier > $out/check_$pid.txt 2>$out/check_$pid.err; echo "exit=$? (tier $tier, restricted to the harnesses the native sweep flagged: $hits)" >> $out/check_$pid.txt)
-  if ! grep -q "^VIOLATION" $out/check_$pid.txt && [ "$tier" = quick ]; then
-    # the flagged harnesses may belong to the thorough tier only (larger bounds, slow ones)
-    (cd $V && VERIF_ONLY="$hits" python3 check.py $pid --tier thorough > $out/check_${pid}_thorough.txt 2>$out/check_${pid}_thorough.err; echo "exit=$? (tier thorough, restricted to the harnesses the native sweep flagged: $hits)" >> $out/check_${pid}_thorough.txt)
-    if grep -q "^VIOLATION" $out/check_${pid}_thorough.txt; then cp $out/check_${pid}_thorough.txt $out/check_$pid.txt; fi
-  fi
-fi
-if [ -z "$hits" ] || { ! grep -q "^VIOLATION" $out/check_$pid.txt && grep -q "no obligation was generated" $out/check_$pid.txt; }; then
-  (cd $V && python3 check.py $pid --tier $tier > $out/check_$pid.txt 2>$out/check_$pid.err; echo "exit=$? (tier $tier, full check; native sweep flagged nothing the restricted runs could decide)" >> $out/check_$pid.txt)
-fi
-sif [ -n "$hits" ]; then
-  (cd $V && VERIF_ONLY="$hits" python3 check.py $pid --tier $tier > $out/check_$pid.txt 2>$out/check_$pid.err; echo "exit=$? (tier $tier, restricted to the harnesses the native sweep flagged: $hits)" >> $out/check_$pid.txt)
-  if ! grep -q "^VIOLATION" $out/check_$pid.txt && [ "$tier" = quick ]; then
-    # the flagged harnesses may belong to the thorough tier only (larger bounds, slow ones)
-    (cd $V && VERIF_ONLY="$hits" python3 check.py $pid --tier thorough > $out/check_${pid}_thorough.txt 2>$out/check_${pid}_thorough.err; echo "exit=$? (tier thorough, restricted to the harnesses the native sweep flagged: $hits)" >> $out/check_${pid}_thorough.txt)
-    if grep -q "^VIOLATION" $out/check_${pid}_thorough.txt; then cp $out/check_${pid}_thorough.txt $out/check_$pid.txt; fi
-  fi
-fi
-if [ -z "$hits" ] || { ! grep -q "^VIOLATION" $out/check_$pid.txt && grep -q "no obligation was generated" $out/check_$pid.txt; }; then
-  (cd $V && python3 check.py $pid --tier $tier > $out/check_$pid.txt 2>$out/check_$pid.err; echo "exit=$? (tier $tier, full check; native sweep flagged nothing the restricted runs could decide)" >> $out/check_$pid.txt)
-fi
-hif [ -n "$hits" ]; then
-  (cd $V && VERIF_ONLY="$hits" python3 check.py $pid --tier $tier > $out/check_$pid.txt 2>$out/check_$pid.err; echo "exit=$? (tier $tier, restricted to the harnesses the native sweep flagged: $hits)" >> $out/check_$pid.txt)
-  if ! grep -q "^VIOLATION" $out/check_$pid.txt && [ "$tier" = quick ]; then
-    # the flagged harnesses may belong to the thorough tier only (larger bounds, slow ones)
-    (cd $V && VERIF_ONLY="$hits" python3 check.py $pid --tier thorough > $out/check_${pid}_thorough.txt 2>$out/check_${pid}_thorough.err; echo "exit=$? (tier thorough, restricted to the harnesses the native sweep flagged: $hits)" >> $out/check_${pid}_thorough.txt)
-    if grep -q "^VIOLATION" $out/check_${pid}_thorough.txt; then cp $out/check_${pid}_thorough.txt $out/check_$pid.txt; fi
-  fi
-fi
-if [ -z "$hits" ] || { ! grep -q "^VIOLATION" $out/check_$pid.txt && grep -q "no obligation was generated" $out/check_$pid.txt; }; then
-  (cd $V && python3 check.py $pid --tier $tier > $out/check_$pid.txt 2>$out/check_$pid.err; echo "exit=$? (tier $tier, full check; native sweep flagged nothing the restricted runs could decide)" >> $out/check_$pid.txt)
-fi
- if [ -n "$hits" ]; then
-  (cd $V && VERIF_ONLY="$hits" python3 check.py $pid --tier $tier > $out/check_$pid.txt 2>$out/check_$pid.err; echo "exit=$? (tier $tier, restricted to the harnesses the native sweep flagged: $hits)" >> $out/check_$pid.txt)
-  if ! grep -q "^VIOLATION" $out/check_$pid.txt && [ "$tier" = quick ]; then
-    # the flagged harnesses may belong to the thorough tier only (larger bounds, slow ones)
-    (cd $V && VERIF_ONLY="$hits" python3 check.py $pid --tier thorough > $out/check_${pid}_thorough.txt 2>$out/check_${pid}_thorough.err; echo "exit=$? (tier thorough, restricted to the harnesses the native sweep flagged: $hits)" >> $out/check_${pid}_thorough.txt)
-    if grep -q "^VIOLATION" $out/check_${pid}_thorough.txt; then cp $out/check_${pid}_thorough.txt $out/check_$pid.txt; fi
-  fi
-fi
-if [ -z "$hits" ] || { ! grep -q "^VIOLATION" $out/check_$pid.txt && grep -q "no obligation was generated" $out/check_$pid.txt; }; then
-  (cd $V && python3 check.py $pid --tier $tier > $out/check_$pid.txt 2>$out/check_$pid.err; echo "exit=$? (tier $tier, full check; native sweep flagged nothing the restricted runs could decide)" >> $out/check_$pid.txt)
-fi
-<if [ -n "$hits" ]; then
-  (cd $V && VERIF_ONLY="$hits" python3 check.py $pid --tier $tier > $out/check_$pid.txt 2>$out/check_$pid.err; echo "exit=$? (tier $tier, restricted to the harnesses the native sweep flagged: $hits)" >> $out/check_$pid.txt)
-  if ! grep -q "^VIOLATION" $out/check_$pid.txt && [ "$tier" = quick ]; then
-    # the flagged harnesses may belong to the thorough tier only (larger bounds, slow ones)
-    (cd $V && VERIF_ONLY="$hits" python3 check.py $pid --tier thorough > $out/check_${pid}_thorough.txt 2>$out/check_${pid}_thorough.err; echo "exit=$? (tier thorough, restricted to the harnesses the native sweep flagged: $hits)" >> $out/check_${pid}_thorough.txt)
-    if grep -q "^VIOLATION" $out/check_${pid}_thorough.txt; then cp $out/check_${pid}_thorough.txt $out/check_$pid.txt; fi
-  fi
-fi
-if [ -z "$hits" ] || { ! grep -q "^VIOLATION" $out/check_$pid.txt && grep -q "no obligation was generated" $out/check_$pid.txt; }; then
-  (cd $V && python3 check.py $pid --tier $tier > $out/check_$pid.txt 2>$out/check_$pid.err; echo "exit=$? (tier $tier, full check; native sweep flagged nothing the restricted runs could decide)" >> $out/check_$pid.txt)
-fi
-sif [ -n "$hits" ]; then
-  (cd $V && VERIF_ONLY="$hits" python3 check.py $pid --tier $tier > $out/check_$pid.txt 2>$out/check_$pid.err; echo "exit=$? (tier $tier, restricted to the harnesses the native sweep flagged: $hits)" >> $out/check_$pid.txt)
-  if ! grep -q "^VIOLATION" $out/check_$pid.txt && [ "$tier" = quick ]; then
-    # the flagged harnesses may belong to the thorough tier only (larger bounds, slow ones)
-    (cd $V && VERIF_ONLY="$hits" python3 check.py $pid --tier thorough > $out/check_${pid}_thorough.txt 2>$out/check_${pid}_thorough.err; echo "exit=$? (tier thorough, restricted to the harnesses the native sweep flagged: $hits)" >> $out/check_${pid}_thorough.txt)
-    if grep -q "^VIOLATION" $out/check_${pid}_thorough.txt; then cp $out/check_${pid}_thorough.txt $out/check_$pid.txt; fi
-  fi
-fi
-if [ -z "$hits" ] || { ! grep -q "^VIOLATION" $out/check_$pid.txt && grep -q "no obligation was generated" $out/check_$pid.txt; }; then
-  (cd $V && python3 check.py $pid --tier $tier > $out/check_$pid.txt 2>$out/check_$pid.err; echo "exit=$? (tier $tier, full check; native sweep flagged nothing the restricted runs could decide)" >> $out/check_$pid.txt)
-fi
-eif [ -n "$hits" ]; then
-  (cd $V && VERIF_ONLY="$hits" python3 check.py $pid --tier $tier > $out/check_$pid.txt 2>$out/check_$pid.err; echo "exit=$? (tier $tier, restricted to the harnesses the native sweep flagged: $hits)" >> $out/check_$pid.txt)
-  if ! grep -q "^VIOLATION" $out/check_$pid.txt && [ "$tier" = quick ]; then
-    # the flagged harnesses may belong to the thorough tier only (larger bounds, slow ones)
-    (cd $V && VERIF_ONLY="$hits" python3 check.py $pid --tier thorough > $out/check_${pid}_thorough.txt 2>$out/check_${pid}_thorough.err; echo "exit=$? (tier thorough, restricted to the harnesses the native sweep flagged: $hits)" >> $out/check_${pid}_thorough.txt)
-    if grep -q "^VIOLATION" $out/check_${pid}_thorough.txt; then cp $out/check_${pid}_thorough.txt $out/check_$pid.txt; fi
-  fi
-fi
-if [ -z "$hits" ] || { ! grep -q "^VIOLATION" $out/check_$pid.txt && grep -q "no obligation was generated" $out/check_$pid.txt; }; then
-  (cd $V && python3 check.py $pid --tier $tier > $out/check_$pid.txt 2>$out/check_$pid.err; echo "exit=$? (tier $tier, full check; native sweep flagged nothing the restricted runs could decide)" >> $out/check_$pid.txt)
-fi
-eif [ -n "$hits" ]; then
-  (cd $V && VERIF_ONLY="$hits" python3 check.py $pid --tier $tier > $out/check_$pid.txt 2>$out/check_$pid.err; echo "exit=$? (tier $tier, restricted to the harnesses the native sweep flagged: $hits)" >> $out/check_$pid.txt)
-  if ! grep -q "^VIOLATION" $out/check_$pid.txt && [ "$tier" = quick ]; then
-    # the flagged harnesses may belong to the thorough tier only (larger bounds, slow ones)
-    (cd $V && VERIF_ONLY="$hits" python3 check.py $pid --tier thorough > $out/check_${pid}_thorough.txt 2>$out/check_${pid}_thorough.err; echo "exit=$? (tier thorough, restricted to the harnesses the native sweep flagged: $hits)" >> $out/check_${pid}_thorough.txt)
-    if grep -q "^VIOLATION" $out/check_${pid}_thorough.txt; then cp $out/check_${pid}_thorough.txt $out/check_$pid.txt; fi
-  fi
-fi
-if [ -z "$hits" ] || { ! grep -q "^VIOLATION" $out/check_$pid.txt && grep -q "no obligation was generated" $out/check_$pid.txt; }; then
-  (cd $V && python3 check.py $pid --tier $tier > $out/check_$pid.txt 2>$out/check_$pid.err; echo "exit=$? (tier $tier, full check; native sweep flagged nothing the restricted runs could decide)" >> $out/check_$pid.txt)
-fi
-dif [ -n "$hits" ]; then
-  (cd $V && VERIF_ONLY="$hits" python3 check.py $pid --tier $tier > $out/check_$pid.txt 2>$out/check_$pid.err; echo "exit=$? (tier $tier, restricted to the harnesses the native sweep flagged: $hits)" >> $out/check_$pid.txt)
-  if ! grep -q "^VIOLATION" $out/check_$pid.txt && [ "$tier" = quick ]; then
-    # the flagged harnesses may belong to the thorough tier only (larger bounds, slow ones)
-    (cd $V && VERIF_ONLY="$hits" python3 check.py $pid --tier thorough > $out/check_${pid}_thorough.txt 2>$out/check_${pid}_thorough.err; echo "exit=$? (tier thorough, restricted to the harnesses the native sweep flagged: $hits)" >> $out/check_${pid}_thorough.txt)
-    if grep -q "^VIOLATION" $out/check_${pid}_thorough.txt; then cp $out/check_${pid}_thorough.txt $out/check_$pid.txt; fi
-  fi
-fi
-if [ -z "$hits" ] || { ! grep -q "^VIOLATION" $out/check_$pid.txt && grep -q "no obligation was generated" $out/check_$pid.txt; }; then
-  (cd $V && python3 check.py $pid --tier $tier > $out/check_$pid.txt 2>$out/check_$pid.err; echo "exit=$? (tier $tier, full check; native sweep flagged nothing the restricted runs could decide)" >> $out/check_$pid.txt)
-fi
--if [ -n "$hits" ]; then
-  (cd $V && VERIF_ONLY="$hits" python3 check.py $pid --tier $tier > $out/check_$pid.txt 2>$out/check_$pid.err; echo "exit=$? (tier $tier, restricted to the harnesses the native sweep flagged: $hits)" >> $out/check_$pid.txt)
-  if ! grep -q "^VIOLATION" $out/check_$pid.txt && [ "$tier" = quick ]; then
-    # the flagged harnesses may belong to the thorough tier only (larger bounds, slow ones)
-    (cd $V && VERIF_ONLY="$hits" python3 check.py $pid --tier thorough > $out/check_${pid}_thorough.txt 2>$out/check_${pid}_thorough.err; echo "exit=$? (tier thorough, restricted to the harnesses the native sweep flagged: $hits)" >> $out/check_${pid}_thorough.txt)
-    if grep -q "^VIOLATION" $out/check_${pid}_thorough.txt; then cp $out/check_${pid}_thorough.txt $out/check_$pid.txt; fi
-  fi
-fi
-if [ -z "$hits" ] || { ! grep -q "^VIOLATION" $out/check_$pid.txt && grep -q "no obligation was generated" $out/check_$pid.txt; }; then
-  (cd $V && python3 check.py $pid --tier $tier > $out/check_$pid.txt 2>$out/check_$pid.err; echo "exit=$? (tier $tier, full check; native sweep flagged nothing the restricted runs could decide)" >> $out/check_$pid.txt)
-fi
-nif [ -n "$hits" ]; then
-  (cd $V && VERIF_ONLY="$hits" python3 check.py $pid --tier $tier > $out/check_$pid.txt 2>$out/check_$pid.err; echo "exit=$? (tier $tier, restricted to the harnesses the native sweep flagged: $hits)" >> $out/check_$pid.txt)
-  if ! grep -q "^VIOLATION" $out/check_$pid.txt && [ "$tier" = quick ]; then
-    # the flagged harnesses may belong to the thorough tier only (larger bounds, slow ones)
-    (cd $V && VERIF_ONLY="$hits" python3 check.py $pid --tier thorough > $out/check_${pid}_thorough.txt 2>$out/check_${pid}_thorough.err; echo "exit=$? (tier thorough, restricted to the harnesses the native sweep flagged: $hits)" >> $out/check_${pid}_thorough.txt)
-    if grep -q "^VIOLATION" $out/check_${pid}_thorough.txt; then cp $out/check_${pid}_thorough.txt $out/check_$pid.txt; fi
-  fi
-fi
-if [ -z "$hits" ] || { ! grep -q "^VIOLATION" $out/check_$pid.txt && grep -q "no obligation was generated" $out/check_$pid.txt; }; then
-  (cd $V && python3 check.py $pid --tier $tier > $out/check_$pid.txt 2>$out/check_$pid.err; echo "exit=$? (tier $tier, full check; native sweep flagged nothing the restricted runs could decide)" >> $out/check_$pid.txt)
-fi
-aif [ -n "$hits" ]; then
-  (cd $V && VERIF_ONLY="$hits" python3 check.py $pid --tier $tier > $out/check_$pid.txt 2>$out/check_$pid.err; echo "exit=$? (tier $tier, restricted to the harnesses the native sweep flagged: $hits)" >> $out/check_$pid.txt)
-  if ! grep -q "^VIOLATION" $out/check_$pid.txt && [ "$tier" = quick ]; then
-    # the flagged harnesses may belong to the thorough tier only (larger bounds, slow ones)
-    (cd $V && VERIF_ONLY="$hits" python3 check.py $pid --tier thorough > $out/check_${pid}_thorough.txt 2>$out/check_${pid}_thorough.err; echo "exit=$? (tier thorough, restricted to the harnesses the native sweep flagged: $hits)" >> $out/check_${pid}_thorough.txt)
-    if grep -q "^VIOLATION" $out/check_${pid}_thorough.txt; then cp $out/check_${pid}_thorough.txt $out/check_$pid.txt; fi
-  fi
-fi
-if [ -z "$hits" ] || { ! grep -q "^VIOLATION" $out/check_$pid.txt && grep -q "no obligation was generated" $out/check_$pid.txt; }; then
-  (cd $V && python3 check.py $pid --tier $tier > $out/check_$pid.txt 2>$out/check_$pid.err; echo "exit=$? (tier $tier, full check; native sweep flagged nothing the restricted runs could decide)" >> $out/check_$pid.txt)
-fi
-mif [ -n "$hits" ]; then
-  (cd $V && VERIF_ONLY="$hits" python3 check.py $pid --tier $tier > $out/check_$pid.txt 2>$out/check_$pid.err; echo "exit=$? (tier $tier, restricted to the harnesses the native sweep flagged: $hits)" >> $out/check_$pid.txt)
-  if ! grep -q "^VIOLATION" $out/check_$pid.txt && [ "$tier" = quick ]; then
-    # the flagged harnesses may belong to the thorough tier only (larger bounds, slow ones)
-    (cd $V && VERIF_ONLY="$hits" python3 check.py $pid --tier thorough > $out/check_${pid}_thorough.txt 2>$out/check_${pid}_thorough.err; echo "exit=$? (tier thorough, restricted to the harnesses the native sweep flagged: $hits)" >> $out/check_${pid}_thorough.txt)
-    if grep -q "^VIOLATION" $out/check_${pid}_thorough.txt; then cp $out/check_${pid}_thorough.txt $out/check_$pid.txt; fi
-  fi
-fi
-if [ -z "$hits" ] || { ! grep -q "^VIOLATION" $out/check_$pid.txt && grep -q "no obligation was generated" $out/check_$pid.txt; }; then
-  (cd $V && python3 check.py $pid --tier $tier > $out/check_$pid.txt 2>$out/check_$pid.err; echo "exit=$? (tier $tier, full check; native sweep flagged nothing the restricted runs could decide)" >> $out/check_$pid.txt)
-fi
-eif [ -n "$hits" ]; then
-  (cd $V && VERIF_ONLY="$hits" python3 check.py $pid --tier $tier > $out/check_$pid.txt 2>$out/check_$pid.err; echo "exit=$? (tier $tier, restricted to the harnesses the native sweep flagged: $hits)" >> $out/check_$pid.txt)
-  if ! grep -q "^VIOLATION" $out/check_$pid.txt && [ "$tier" = quick ]; then
-    # the flagged harnesses may belong to the thorough tier only (larger bounds, slow ones)
-    (cd $V && VERIF_ONLY="$hits" python3 check.py $pid --tier thorough > $out/check_${pid}_thorough.txt 2>$out/check_${pid}_thorough.err; echo "exit=$? (tier thorough, restricted to the harnesses the native sweep flagged: $hits)" >> $out/check_${pid}_thorough.txt)
-    if grep -q "^VIOLATION" $out/check_${pid}_thorough.txt; then cp $out/check_${pid}_thorough.txt $out/check_$pid.txt; fi
-  fi
-fi
-if [ -z "$hits" ] || { ! grep -q "^VIOLATION" $out/check_$pid.txt && grep -q "no obligation was generated" $out/check_$pid.txt; }; then
-  (cd $V && python3 check.py $pid --tier $tier > $out/check_$pid.txt 2>$out/check_$pid.err; echo "exit=$? (tier $tier, full check; native sweep flagged nothing the restricted runs could decide)" >> $out/check_$pid.txt)
-fi
->if [ -n "$hits" ]; then
-  (cd $V && VERIF_ONLY="$hits" python3 check.py $pid --tier $tier > $out/check_$pid.txt 2>$out/check_$pid.err; echo "exit=$? (tier $tier, restricted to the harnesses the native sweep flagged: $hits)" >> $out/check_$pid.txt)
-  if ! grep -q "^VIOLATION" $out/check_$pid.txt && [ "$tier" = quick ]; then
-    # the flagged harnesses may belong to the thorough tier only (larger bounds, slow ones)
-    (cd $V && VERIF_ONLY="$hits" python3 check.py $pid --tier thorough > $out/check_${pid}_thorough.txt 2>$out/check_${pid}_thorough.err; echo "exit=$? (tier thorough, restricted to the harnesses the native sweep flagged: $hits)" >> $out/check_${pid}_thorough.txt)
-    if grep -q "^VIOLATION" $out/check_${pid}_thorough.txt; then cp $out/check_${pid}_thorough.txt $out/check_$pid.txt; fi
-  fi
-fi
-if [ -z "$hits" ] || { ! grep -q "^VIOLATION" $out/check_$pid.txt && grep -q "no obligation was generated" $out/check_$pid.txt; }; then
-  (cd $V && python3 check.py $pid --tier $tier > $out/check_$pid.txt 2>$out/check_$pid.err; echo "exit=$? (tier $tier, full check; native sweep flagged nothing the restricted runs could decide)" >> $out/check_$pid.txt)
-fi
- if [ -n "$hits" ]; then
-  (cd $V && VERIF_ONLY="$hits" python3 check.py $pid --tier $tier > $out/check_$pid.txt 2>$out/check_$pid.err; echo "exit=$? (tier $tier, restricted to the harnesses the native sweep flagged: $hits)" >> $out/check_$pid.txt)
-  if ! grep -q "^VIOLATION" $out/check_$pid.txt && [ "$tier" = quick ]; then
-    # the flagged harnesses may belong to the thorough tier only (larger bounds, slow ones)
-    (cd $V && VERIF_ONLY="$hits" python3 check.py $pid --tier thorough > $out/check_${pid}_thorough.txt 2>$out/check_${pid}_thorough.err; echo "exit=$? (tier thorough, restricted to the harnesses the native sweep flagged: $hits)" >> $out/check_${pid}_thorough.txt)
-    if grep -q "^VIOLATION" $out/check_${pid}_thorough.txt; then cp $out/check_${pid}_thorough.txt $out/check_$pid.txt; fi
-  fi
-fi
-if [ -z "$hits" ] || { ! grep -q "^VIOLATION" $out/check_$pid.txt && grep -q "no obligation was generated" $out/check_$pid.txt; }; then
-  (cd $V && python3 check.py $pid --tier $tier > $out/check_$pid.txt 2>$out/check_$pid.err; echo "exit=$? (tier $tier, full check; native sweep flagged nothing the restricted runs could decide)" >> $out/check_$pid.txt)
-fi
-[if [ -n "$hits" ]; then
-  (cd $V && VERIF_ONLY="$hits" python3 check.py $pid --tier $tier > $out/check_$pid.txt 2>$out/check_$pid.err; echo "exit=$? (tier $tier, restricted to the harnesses the native sweep flagged: $hits)" >> $out/check_$pid.txt)
-  if ! grep -q "^VIOLATION" $out/check_$pid.txt && [ "$tier" = quick ]; then
-    # the flagged harnesses may belong to the thorough tier only (larger bounds, slow ones)
-    (cd $V && VERIF_ONLY="$hits" python3 check.py $pid --tier thorough > $out/check_${pid}_thorough.txt 2>$out/check_${pid}_thorough.err; echo "exit=$? (tier thorough, restricted to the harnesses the native sweep flagged: $hits)" >> $out/check_${pid}_thorough.txt)
-    if grep -q "^VIOLATION" $out/check_${pid}_thorough.txt; then cp $out/check_${pid}_thorough.txt $out/check_$pid.txt; fi
-  fi
-fi
-if [ -z "$hits" ] || { ! grep -q "^VIOLATION" $out/check_$pid.txt && grep -q "no obligation was generated" $out/check_$pid.txt; }; then
-  (cd $V && python3 check.py $pid --tier $tier > $out/check_$pid.txt 2>$out/check_$pid.err; echo "exit=$? (tier $tier, full check; native sweep flagged nothing the restricted runs could decide)" >> $out/check_$pid.txt)
-fi
-tif [ -n "$hits" ]; then
-  (cd $V && VERIF_ONLY="$hits" python3 check.py $pid --tier $tier > $out/check_$pid.txt 2>$out/check_$pid.err; echo "exit=$? (tier $tier, restricted to the harnesses the native sweep flagged: $hits)" >> $out/check_$pid.txt)
-  if ! grep -q "^VIOLATION" $out/check_$pid.txt && [ "$tier" = quick ]; then
-    # the flagged harnesses may belong to the thorough tier only (larger bounds, slow ones)
-    (cd $V && VERIF_ONLY="$hits" python3 check.py $pid --tier thorough > $out/check_${pid}_thorough.txt 2>$out/check_${pid}_thorough.err; echo "exit=$? (tier thorough, restricted to the harnesses the native sweep flagged: $hits)" >> $out/check_${pid}_thorough.txt)
-    if grep -q "^VIOLATION" $out/check_${pid}_thorough.txt; then cp $out/check_${pid}_thorough.txt $out/check_$pid.txt; fi
-  fi
-fi
-if [ -z "$hits" ] || { ! grep -q "^VIOLATION" $out/check_$pid.txt && grep -q "no obligation was generated" $out/check_$pid.txt; }; then
-  (cd $V && python3 check.py $pid --tier $tier > $out/check_$pid.txt 2>$out/check_$pid.err; echo "exit=$? (tier $tier, full check; native sweep flagged nothing the restricted runs could decide)" >> $out/check_$pid.txt)
-fi
-iif [ -n "$hits" ]; then
-  (cd $V && VERIF_ONLY="$hits" python3 check.py $pid --tier $tier > $out/check_$pid.txt 2>$out/check_$pid.err; echo "exit=$? (tier $tier, restricted to the harnesses the native sweep flagged: $hits)" >> $out/check_$pid.txt)
-  if ! grep -q "^VIOLATION" $out/check_$pid.txt && [ "$tier" = quick ]; then
-    # the flagged harnesses may belong to the thorough tier only (larger bounds, slow ones)
-    (cd $V && VERIF_ONLY="$hits" python3 check.py $pid --tier thorough > $out/check_${pid}_thorough.txt 2>$out/check_${pid}_thorough.err; echo "exit=$? (tier thorough, restricted to the harnesses the native sweep flagged: $hits)" >> $out/check_${pid}_thorough.txt)
-    if grep -q "^VIOLATION" $out/check_${pid}_thorough.txt; then cp $out/check_${pid}_thorough.txt $out/check_$pid.txt; fi
-  fi
-fi
-if [ -z "$hits" ] || { ! grep -q "^VIOLATION" $out/check_$pid.txt && grep -q "no obligation was generated" $out/check_$pid.txt; }; then
-  (cd $V && python3 check.py $pid --tier $tier > $out/check_$pid.txt 2>$out/check_$pid.err; echo "exit=$? (tier $tier, full check; native sweep flagged nothing the restricted runs could decide)" >> $out/check_$pid.txt)
-fi
-eif [ -n "$hits" ]; then
-  (cd $V && VERIF_ONLY="$hits" python3 check.py $pid --tier $tier > $out/check_$pid.txt 2>$out/check_$pid.err; echo "exit=$? (tier $tier, restricted to the harnesses the native sweep flagged: $hits)" >> $out/check_$pid.txt)
-  if ! grep -q "^VIOLATION" $out/check_$pid.txt && [ "$tier" = quick ]; then
-    # the flagged harnesses may belong to the thorough tier only (larger bounds, slow ones)
-    (cd $V && VERIF_ONLY="$hits" python3 check.py $pid --tier thorough > $out/check_${pid}_thorough.txt 2>$out/check_${pid}_thorough.err; echo "exit=$? (tier thorough, restricted to the harnesses the native sweep flagged: $hits)" >> $out/check_${pid}_thorough.txt)
-    if grep -q "^VIOLATION" $out/check_${pid}_thorough.txt; then cp $out/check_${pid}_thorough.txt $out/check_$pid.txt; fi
-  fi
-fi
-if [ -z "$hits" ] || { ! grep -q "^VIOLATION" $out/check_$pid.txt && grep -q "no obligation was generated" $out/check_$pid.txt; }; then
-  (cd $V && python3 check.py $pid --tier $tier > $out/check_$pid.txt 2>$out/check_$pid.err; echo "exit=$? (tier $tier, full check; native sweep flagged nothing the restricted runs could decide)" >> $out/check_$pid.txt)
-fi
-rif [ -n "$hits" ]; then
-  (cd $V && VERIF_ONLY="$hits" python3 check.py $pid --tier $tier > $out/check_$pid.txt 2>$out/check_$pid.err; echo "exit=$? (tier $tier, restricted to the harnesses the native sweep flagged: $hits)" >> $out/check_$pid.txt)
-  if ! grep -q "^VIOLATION" $out/check_$pid.txt && [ "$tier" = quick ]; then
-    # the flagged harnesses may belong to the thorough tier only (larger bounds, slow ones)
-    (cd $V && VERIF_ONLY="$hits" python3 check.py $pid --tier thorough > $out/check_${pid}_thorough.txt 2>$out/check_${pid}_thorough.err; echo "exit=$? (tier thorough, restricted to the harnesses the native sweep flagged: $hits)" >> $out/check_${pid}_thorough.txt)
-    if grep -q "^VIOLATION" $out/check_${pid}_thorough.txt; then cp $out/check_${pid}_thorough.txt $out/check_$pid.txt; fi
-  fi
-fi
-if [ -z "$hits" ] || { ! grep -q "^VIOLATION" $out/check_$pid.txt && grep -q "no obligation was generated" $out/check_$pid.txt; }; then
-  (cd $V && python3 check.py $pid --tier $tier > $out/check_$pid.txt 2>$out/check_$pid.err; echo "exit=$? (tier $tier, full check; native sweep flagged nothing the restricted runs could decide)" >> $out/check_$pid.txt)
-fi
-]if [ -n "$hits" ]; then
-  (cd $V && VERIF_ONLY="$hits" python3 check.py $pid --tier $tier > $out/check_$pid.txt 2>$out/check_$pid.err; echo "exit=$? (tier $tier, restricted to the harnesses the native sweep flagged: $hits)" >> $out/check_$pid.txt)
-  if ! grep -q "^VIOLATION" $out/check_$pid.txt && [ "$tier" = quick ]; then
-    # the flagged harnesses may belong to the thorough tier only (larger bounds, slow ones)
-    (cd $V && VERIF_ONLY="$hits" python3 check.py $pid --tier thorough > $out/check_${pid}_thorough.txt 2>$out/check_${pid}_thorough.err; echo "exit=$? (tier thorough, restricted to the harnesses the native sweep flagged: $hits)" >> $out/check_${pid}_thorough.txt)
-    if grep -q "^VIOLATION" $out/check_${pid}_thorough.txt; then cp $out/check_${pid}_thorough.txt $out/check_$pid.txt; fi
-  fi
-fi
-if [ -z "$hits" ] || { ! grep -q "^VIOLATION" $out/check_$pid.txt && grep -q "no obligation was generated" $out/check_$pid.txt; }; then
-  (cd $V && python3 check.py $pid --tier $tier > $out/check_$pid.txt 2>$out/check_$pid.err; echo "exit=$? (tier $tier, full check; native sweep flagged nothing the restricted runs could decide)" >> $out/check_$pid.txt)
-fi
-:if [ -n "$hits" ]; then
-  (cd $V && VERIF_ONLY="$hits" python3 check.py $pid --tier $tier > $out/check_$pid.txt 2>$out/check_$pid.err; echo "exit=$? (tier $tier, restricted to the harnesses the native sweep flagged: $hits)" >> $out/check_$pid.txt)
-  if ! grep -q "^VIOLATION" $out/check_$pid.txt && [ "$tier" = quick ]; then
-    # the flagged harnesses may belong to the thorough tier only (larger bounds, slow ones)
-    (cd $V && VERIF_ONLY="$hits" python3 check.py $pid --tier thorough > $out/check_${pid}_thorough.txt 2>$out/check_${pid}_thorough.err; echo "exit=$? (tier thorough, restricted to the harnesses the native sweep flagged: $hits)" >> $out/check_${pid}_thorough.txt)
-    if grep -q "^VIOLATION" $out/check_${pid}_thorough.txt; then cp $out/check_${pid}_thorough.txt $out/check_$pid.txt; fi
-  fi
-fi
-if [ -z "$hits" ] || { ! grep -q "^VIOLATION" $out/check_$pid.txt && grep -q "no obligation was generated" $out/check_$pid.txt; }; then
-  (cd $V && python3 check.py $pid --tier $tier > $out/check_$pid.txt 2>$out/check_$pid.err; echo "exit=$? (tier $tier, full check; native sweep flagged nothing the restricted runs could decide)" >> $out/check_$pid.txt)
-fi
- if [ -n "$hits" ]; then
-  (cd $V && VERIF_ONLY="$hits" python3 check.py $pid --tier $tier > $out/check_$pid.txt 2>$out/check_$pid.err; echo "exit=$? (tier $tier, restricted to the harnesses the native sweep flagged: $hits)" >> $out/check_$pid.txt)
-  if ! grep -q "^VIOLATION" $out/check_$pid.txt && [ "$tier" = quick ]; then
-    # the flagged harnesses may belong to the thorough tier only (larger bounds, slow ones)
-    (cd $V && VERIF_ONLY="$hits" python3 check.py $pid --tier thorough > $out/check_${pid}_thorough.txt 2>$out/check_${pid}_thorough.err; echo "exit=$? (tier thorough, restricted to the harnesses the native sweep flagged: $hits)" >> $out/check_${pid}_thorough.txt)
-    if grep -q "^VIOLATION" $out/check_${pid}_thorough.txt; then cp $out/check_${pid}_thorough.txt $out/check_$pid.txt; fi
-  fi
-fi
-if [ -z "$hits" ] || { ! grep -q "^VIOLATION" $out/check_$pid.txt && grep -q "no obligation was generated" $out/check_$pid.txt; }; then
-  (cd $V && python3 check.py $pid --tier $tier > $out/check_$pid.txt 2>$out/check_$pid.err; echo "exit=$? (tier $tier, full check; native sweep flagged nothing the restricted runs could decide)" >> $out/check_$pid.txt)
-fi
-eif [ -n "$hits" ]; then
-  (cd $V && VERIF_ONLY="$hits" python3 check.py $pid --tier $tier > $out/check_$pid.txt 2>$out/check_$pid.err; echo "exit=$? (tier $tier, restricted to the harnesses the native sweep flagged: $hits)" >> $out/check_$pid.txt)
-  if ! grep -q "^VIOLATION" $out/check_$pid.txt && [ "$tier" = quick ]; then
-    # the flagged harnesses may belong to the thorough tier only (larger bounds, slow ones)
-    (cd $V && VERIF_ONLY="$hits" python3 check.py $pid --tier thorough > $out/check_${pid}_thorough.txt 2>$out/check_${pid}_thorough.err; echo "exit=$? (tier thorough, restricted to the harnesses the native sweep flagged: $hits)" >> $out/check_${pid}_thorough.txt)
-    if grep -q "^VIOLATION" $out/check_${pid}_thorough.txt; then cp $out/check_${pid}_thorough.txt $out/check_$pid.txt; fi
-  fi
-fi
-if [ -z "$hits" ] || { ! grep -q "^VIOLATION" $out/check_$pid.txt && grep -q "no obligation was generated" $out/check_$pid.txt; }; then
-  (cd $V && python3 check.py $pid --tier $tier > $out/check_$pid.txt 2>$out/check_$pid.err; echo "exit=$? (tier $tier, full check; native sweep flagged nothing the restricted runs could decide)" >> $out/check_$pid.txt)
-fi
-vif [ -n "$hits" ]; then
-  (cd $V && VERIF_ONLY="$hits" python3 check.py $pid --tier $tier > $out/check_$pid.txt 2>$out/check_$pid.err; echo "exit=$? (tier $tier, restricted to the harnesses the native sweep flagged: $hits)" >> $out/check_$pid.txt)
-  if ! grep -q "^VIOLATION" $out/check_$pid.txt && [ "$tier" = quick ]; then
-    # the flagged harnesses may belong to the thorough tier only (larger bounds, slow ones)
-    (cd $V && VERIF_ONLY="$hits" python3 check.py $pid --tier thorough > $out/check_${pid}_thorough.txt 2>$out/check_${pid}_thorough.err; echo "exit=$? (tier thorough, restricted to the harnesses the native sweep flagged: $hits)" >> $out/check_${pid}_thorough.txt)
-    if grep -q "^VIOLATION" $out/check_${pid}_thorough.txt; then cp $out/check_${pid}_thorough.txt $out/check_$pid.txt; fi
-  fi
-fi
-if [ -z "$hits" ] || { ! grep -q "^VIOLATION" $out/check_$pid.txt && grep -q "no obligation was generated" $out/check_$pid.txt; }; then
-  (cd $V && python3 check.py $pid --tier $tier > $out/check_$pid.txt 2>$out/check_$pid.err; echo "exit=$? (tier $tier, full check; native sweep flagged nothing the restricted runs could decide)" >> $out/check_$pid.txt)
-fi
-aif [ -n "$hits" ]; then
-  (cd $V && VERIF_ONLY="$hits" python3 check.py $pid --tier $tier > $out/check_$pid.txt 2>$out/check_$pid.err; echo "exit=$? (tier $tier, restricted to the harnesses the native sweep flagged: $hits)" >> $out/check_$pid.txt)
-  if ! grep -q "^VIOLATION" $out/check_$pid.txt && [ "$tier" = quick ]; then
-    # the flagged harnesses may belong to the thorough tier only (larger bounds, slow ones)
-    (cd $V && VERIF_ONLY="$hits" python3 check.py $pid --tier thorough > $out/check_${pid}_thorough.txt 2>$out/check_${pid}_thorough.err; echo "exit=$? (tier thorough, restricted to the harnesses the native sweep flagged: $hits)" >> $out/check_${pid}_thorough.txt)
-    if grep -q "^VIOLATION" $out/check_${pid}_thorough.txt; then cp $out/check_${pid}_thorough.txt $out/check_$pid.txt; fi
-  fi
-fi
-if [ -z "$hits" ] || { ! grep -q "^VIOLATION" $out/check_$pid.txt && grep -q "no obligation was generated" $out/check_$pid.txt; }; then
-  (cd $V && python3 check.py $pid --tier $tier > $out/check_$pid.txt 2>$out/check_$pid.err; echo "exit=$? (tier $tier, full check; native sweep flagged nothing the restricted runs could decide)" >> $out/check_$pid.txt)
-fi
-lif [ -n "$hits" ]; then
-  (cd $V && VERIF_ONLY="$hits" python3 check.py $pid --tier $tier > $out/check_$pid.txt 2>$out/check_$pid.err; echo "exit=$? (tier $tier, restricted to the harnesses the native sweep flagged: $hits)" >> $out/check_$pid.txt)
-  if ! grep -q "^VIOLATION" $out/check_$pid.txt && [ "$tier" = quick ]; then
-    # the flagged harnesses may belong to the thorough tier only (larger bounds, slow ones)
-    (cd $V && VERIF_ONLY="$hits" python3 check.py $pid --tier thorough > $out/check_${pid}_thorough.txt 2>$out/check_${pid}_thorough.err; echo "exit=$? (tier thorough, restricted to the harnesses the native sweep flagged: $hits)" >> $out/check_${pid}_thorough.txt)
-    if grep -q "^VIOLATION" $out/check_${pid}_thorough.txt; then cp $out/check_${pid}_thorough.txt $out/check_$pid.txt; fi
-  fi
-fi
-if [ -z "$hits" ] || { ! grep -q "^VIOLATION" $out/check_$pid.txt && grep -q "no obligation was generated" $out/check_$pid.txt; }; then
-  (cd $V && python3 check.py $pid --tier $tier > $out/check_$pid.txt 2>$out/check_$pid.err; echo "exit=$? (tier $tier, full check; native sweep flagged nothing the restricted runs could decide)" >> $out/check_$pid.txt)
-fi
-uif [ -n "$hits" ]; then
-  (cd $V && VERIF_ONLY="$hits" python3 check.py $pid --tier $tier > $out/check_$pid.txt 2>$out/check_$pid.err; echo "exit=$? (tier $tier, restricted to the harnesses the native sweep flagged: $hits)" >> $out/check_$pid.txt)
-  if ! grep -q "^VIOLATION" $out/check_$pid.txt && [ "$tier" = quick ]; then
-    # the flagged harnesses may belong to the thorough tier only (larger bounds, slow ones)
-    (cd $V && VERIF_ONLY="$hits" python3 check.py $pid --tier thorough > $out/check_${pid}_thorough.txt 2>$out/check_${pid}_thorough.err; echo "exit=$? (tier thorough, restricted to the harnesses the native sweep flagged: $hits)" >> $out/check_${pid}_thorough.txt)
-    if grep -q "^VIOLATION" $out/check_${pid}_thorough.txt; then cp $out/check_${pid}_thorough.txt $out/check_$pid.txt; fi
-  fi
-fi
-if [ -z "$hits" ] || { ! grep -q "^VIOLATION" $out/check_$pid.txt && grep -q "no obligation was generated" $out/check_$pid.txt; }; then
-  (cd $V && python3 check.py $pid --tier $tier > $out/check_$pid.txt 2>$out/check_$pid.err; echo "exit=$? (tier $tier, full check; native sweep flagged nothing the restricted runs could decide)" >> $out/check_$pid.txt)
-fi
-aif [ -n "$hits" ]; then
-  (cd $V && VERIF_ONLY="$hits" python3 check.py $pid --tier $tier > $out/check_$pid.txt 2>$out/check_$pid.err; echo "exit=$? (tier $tier, restricted to the harnesses the native sweep flagged: $hits)" >> $out/check_$pid.txt)
-  if ! grep -q "^VIOLATION" $out/check_$pid.txt && [ "$tier" = quick ]; then
-    # the flagged harnesses may belong to the thorough tier only (larger bounds, slow ones)
-    (cd $V && VERIF_ONLY="$hits" python3 check.py $pid --tier thorough > $out/check_${pid}_thorough.txt 2>$out/check_${pid}_thorough.err; echo "exit=$? (tier thorough, restricted to the harnesses the native sweep flagged: $hits)" >> $out/check_${pid}_thorough.txt)
-    if grep -q "^VIOLATION" $out/check_${pid}_thorough.txt; then cp $out/check_${pid}_thorough.txt $out/check_$pid.txt; fi
-  fi
-fi
-if [ -z "$hits" ] || { ! grep -q "^VIOLATION" $out/check_$pid.txt && grep -q "no obligation was generated" $out/check_$pid.txt; }; then
-  (cd $V && python3 check.py $pid --tier $tier > $out/check_$pid.txt 2>$out/check_$pid.err; echo "exit=$? (tier $tier, full check; native sweep flagged nothing the restricted runs could decide)" >> $out/check_$pid.txt)
-fi
-tif [ -n "$hits" ]; then
-  (cd $V && VERIF_ONLY="$hits" python3 check.py $pid --tier $tier > $out/check_$pid.txt 2>$out/check_$pid.err; echo "exit=$? (tier $tier, restricted to the harnesses the native sweep flagged: $hits)" >> $out/check_$pid.txt)
-  if ! grep -q "^VIOLATION" $out/check_$pid.txt && [ "$tier" = quick ]; then
-    # the flagged harnesses may belong to the thorough tier only (larger bounds, slow ones)
-    (cd $V && VERIF_ONLY="$hits" python3 check.py $pid --tier thorough > $out/check_${pid}_thorough.txt 2>$out/check_${pid}_thorough.err; echo "exit=$? (tier thorough, restricted to the harnesses the native sweep flagged: $hits)" >> $out/check_${pid}_thorough.txt)
-    if grep -q "^VIOLATION" $out/check_${pid}_thorough.txt; then cp $out/check_${pid}_thorough.txt $out/check_$pid.txt; fi
-  fi
-fi
-if [ -z "$hits" ] || { ! grep -q "^VIOLATION" $out/check_$pid.txt && grep -q "no obligation was generated" $out/check_$pid.txt; }; then
-  (cd $V && python3 check.py $pid --tier $tier > $out/check_$pid.txt 2>$out/check_$pid.err; echo "exit=$? (tier $tier, full check; native sweep flagged nothing the restricted runs could decide)" >> $out/check_$pid.txt)
-fi
-eif [ -n "$hits" ]; then
-  (cd $V && VERIF_ONLY="$hits" python3 check.py $pid --tier $tier > $out/check_$pid.txt 2>$out/check_$pid.err; echo "exit=$? (tier $tier, restricted to the harnesses the native sweep flagged: $hits)" >> $out/check_$pid.txt)
-  if ! grep -q "^VIOLATION" $out/check_$pid.txt && [ "$tier" = quick ]; then
-    # the flagged harnesses may belong to the thorough tier only (larger bounds, slow ones)
-    (cd $V && VERIF_ONLY="$hits" python3 check.py $pid --tier thorough > $out/check_${pid}_thorough.txt 2>$out/check_${pid}_thorough.err; echo "exit=$? (tier thorough, restricted to the harnesses the native sweep flagged: $hits)" >> $out/check_${pid}_thorough.txt)
-    if grep -q "^VIOLATION" $out/check_${pid}_thorough.txt; then cp $out/check_${pid}_thorough.txt $out/check_$pid.txt; fi
-  fi
-fi
-if [ -z "$hits" ] || { ! grep -q "^VIOLATION" $out/check_$pid.txt && grep -q "no obligation was generated" $out/check_$pid.txt; }; then
-  (cd $V && python3 check.py $pid --tier $tier > $out/check_$pid.txt 2>$out/check_$pid.err; echo "exit=$? (tier $tier, full check; native sweep flagged nothing the restricted runs could decide)" >> $out/check_$pid.txt)
-fi
- if [ -n "$hits" ]; then
-  (cd $V && VERIF_ONLY="$hits" python3 check.py $pid --tier $tier > $out/check_$pid.txt 2>$out/check_$pid.err; echo "exit=$? (tier $tier, restricted to the harnesses the native sweep flagged: $hits)" >> $out/check_$pid.txt)
-  if ! grep -q "^VIOLATION" $out/check_$pid.txt && [ "$tier" = quick ]; then
-    # the flagged harnesses may belong to the thorough tier only (larger bounds, slow ones)
-    (cd $V && VERIF_ONLY="$hits" python3 check.py $pid --tier thorough > $out/check_${pid}_thorough.txt 2>$out/check_${pid}_thorough.err; echo "exit=$? (tier thorough, restricted to the harnesses the native sweep flagged: $hits)" >> $out/check_${pid}_thorough.txt)
-    if grep -q "^VIOLATION" $out/check_${pid}_thorough.txt; then cp $out/check_${pid}_thorough.txt $out/check_$pid.txt; fi
-  fi
-fi
-if [ -z "$hits" ] || { ! grep -q "^VIOLATION" $out/check_$pid.txt && grep -q "no obligation was generated" $out/check_$pid.txt; }; then
-  (cd $V && python3 check.py $pid --tier $tier > $out/check_$pid.txt 2>$out/check_$pid.err; echo "exit=$? (tier $tier, full check; native sweep flagged nothing the restricted runs could decide)" >> $out/check_$pid.txt)
-fi
-tif [ -n "$hits" ]; then
-  (cd $V && VERIF_ONLY="$hits" python3 check.py $pid --tier $tier > $out/check_$pid.txt 2>$out/check_$pid.err; echo "exit=$? (tier $tier, restricted to the harnesses the native sweep flagged: $hits)" >> $out/check_$pid.txt)
-  if ! grep -q "^VIOLATION" $out/check_$pid.txt && [ "$tier" = quick ]; then
-    # the flagged harnesses may belong to the thorough tier only (larger bounds, slow ones)
-    (cd $V && VERIF_ONLY="$hits" python3 check.py $pid --tier thorough > $out/check_${pid}_thorough.txt 2>$out/check_${pid}_thorough.err; echo "exit=$? (tier thorough, restricted to the harnesses the native sweep flagged: $hits)" >> $out/check_${pid}_thorough.txt)
-    if grep -q "^VIOLATION" $out/check_${pid}_thorough.txt; then cp $out/check_${pid}_thorough.txt $out/check_$pid.txt; fi
-  fi
-fi
-if [ -z "$hits" ] || { ! grep -q "^VIOLATION" $out/check_$pid.txt && grep -q "no obligation was generated" $out/check_$pid.txt; }; then
-  (cd $V && python3 check.py $pid --tier $tier > $out/check_$pid.txt 2>$out/check_$pid.err; echo "exit=$? (tier $tier, full check; native sweep flagged nothing the restricted runs could decide)" >> $out/check_$pid.txt)
-fi
-hif [ -n "$hits" ]; then
-  (cd $V && VERIF_ONLY="$hits" python3 check.py $pid --tier $tier > $out/check_$pid.txt 2>$out/check_$pid.err; echo "exit=$? (tier $tier, restricted to the harnesses the native sweep flagged: $hits)" >> $out/check_$pid.txt)
-  if ! grep -q "^VIOLATION" $out/check_$pid.txt && [ "$tier" = quick ]; then
-    # the flagged harnesses may belong to the thorough tier only (larger bounds, slow ones)
-    (cd $V && VERIF_ONLY="$hits" python3 check.py $pid --tier thorough > $out/check_${pid}_thorough.txt 2>$out/check_${pid}_thorough.err; echo "exit=$? (tier thorough, restricted to the harnesses the native sweep flagged: $hits)" >> $out/check_${pid}_thorough.txt)
-    if grep -q "^VIOLATION" $out/check_${pid}_thorough.txt; then cp $out/check_${pid}_thorough.txt $out/check_$pid.txt; fi
-  fi
-fi
-if [ -z "$hits" ] || { ! grep -q "^VIOLATION" $out/check_$pid.txt && grep -q "no obligation was generated" $out/check_$pid.txt; }; then
-  (cd $V && python3 check.py $pid --tier $tier > $out/check_$pid.txt 2>$out/check_$pid.err; echo "exit=$? (tier $tier, full check; native sweep flagged nothing the restricted runs could decide)" >> $out/check_$pid.txt)
-fi
-eif [ -n "$hits" ]; then
-  (cd $V && VERIF_ONLY="$hits" python3 check.py $pid --tier $tier > $out/check_$pid.txt 2>$out/check_$pid.err; echo "exit=$? (tier $tier, restricted to the harnesses the native sweep flagged: $hits)" >> $out/check_$pid.txt)
-  if ! grep -q "^VIOLATION" $out/check_$pid.txt && [ "$tier" = quick ]; then
-    # the flagged harnesses may belong to the thorough tier only (larger bounds, slow ones)
-    (cd $V && VERIF_ONLY="$hits" python3 check.py $pid --tier thorough > $out/check_${pid}_thorough.txt 2>$out/check_${pid}_thorough.err; echo "exit=$? (tier thorough, restricted to the harnesses the native sweep flagged: $hits)" >> $out/check_${pid}_thorough.txt)
-    if grep -q "^VIOLATION" $out/check_${pid}_thorough.txt; then cp $out/check_${pid}_thorough.txt $out/check_$pid.txt; fi
-  fi
-fi
-if [ -z "$hits" ] || { ! grep -q "^VIOLATION" $out/check_$pid.txt && grep -q "no obligation was generated" $out/check_$pid.txt; }; then
-  (cd $V && python3 check.py $pid --tier $tier > $out/check_$pid.txt 2>$out/check_$pid.err; echo "exit=$? (tier $tier, full check; native sweep flagged nothing the restricted runs could decide)" >> $out/check_$pid.txt)
-fi
- if [ -n "$hits" ]; then
-  (cd $V && VERIF_ONLY="$hits" python3 check.py $pid --tier $tier > $out/check_$pid.txt 2>$out/check_$pid.err; echo "exit=$? (tier $tier, restricted to the harnesses the native sweep flagged: $hits)" >> $out/check_$pid.txt)
-  if ! grep -q "^VIOLATION" $out/check_$pid.txt && [ "$tier" = quick ]; then
-    # the flagged harnesses may belong to the thorough tier only (larger bounds, slow ones)
-    (cd $V && VERIF_ONLY="$hits" python3 check.py $pid --tier thorough > $out/check_${pid}_thorough.txt 2>$out/check_${pid}_thorough.err; echo "exit=$? (tier thorough, restricted to the harnesses the native sweep flagged: $hits)" >> $out/check_${pid}_thorough.txt)
-    if grep -q "^VIOLATION" $out/check_${pid}_thorough.txt; then cp $out/check_${pid}_thorough.txt $out/check_$pid.txt; fi
-  fi
-fi
-if [ -z "$hits" ] || { ! grep -q "^VIOLATION" $out/check_$pid.txt && grep -q "no obligation was generated" $out/check_$pid.txt; }; then
-  (cd $V && python3 check.py $pid --tier $tier > $out/check_$pid.txt 2>$out/check_$pid.err; echo "exit=$? (tier $tier, full check; native sweep flagged nothing the restricted runs could decide)" >> $out/check_$pid.txt)
-fi
-pif [ -n "$hits" ]; then
-  (cd $V && VERIF_ONLY="$hits" python3 check.py $pid --tier $tier > $out/check_$pid.txt 2>$out/check_$pid.err; echo "exit=$? (tier $tier, restricted to the harnesses the native sweep flagged: $hits)" >> $out/check_$pid.txt)
-  if ! grep -q "^VIOLATION" $out/check_$pid.txt && [ "$tier" = quick ]; then
-    # the flagged harnesses may belong to the thorough tier only (larger bounds, slow ones)
-    (cd $V && VERIF_ONLY="$hits" python3 check.py $pid --tier thorough > $out/check_${pid}_thorough.txt 2>$out/check_${pid}_thorough.err; echo "exit=$? (tier thorough, restricted to the harnesses the native sweep flagged: $hits)" >> $out/check_${pid}_thorough.txt)
-    if grep -q "^VIOLATION" $out/check_${pid}_thorough.txt; then cp $out/check_${pid}_thorough.txt $out/check_$pid.txt; fi
-  fi
-fi
-if [ -z "$hits" ] || { ! grep -q "^VIOLATION" $out/check_$pid.txt && grep -q "no obligation was generated" $out/check_$pid.txt; }; then
-  (cd $V && python3 check.py $pid --tier $tier > $out/check_$pid.txt 2>$out/check_$pid.err; echo "exit=$? (tier $tier, full check; native sweep flagged nothing the restricted runs could decide)" >> $out/check_$pid.txt)
-fi
-rif [ -n "$hits" ]; then
-  (cd $V && VERIF_ONLY="$hits" python3 check.py $pid --tier $tier > $out/check_$pid.txt 2>$out/check_$pid.err; echo "exit=$? (tier $tier, restricted to the harnesses the native sweep flagged: $hits)" >> $out/check_$pid.txt)
-  if ! grep -q "^VIOLATION" $out/check_$pid.txt && [ "$tier" = quick ]; then
-    # the flagged harnesses may belong to the thorough tier only (larger bounds, slow ones)
-    (cd $V && VERIF_ONLY="$hits" python3 check.py $pid --tier thorough > $out/check_${pid}_thorough.txt 2>$out/check_${pid}_thorough.err; echo "exit=$? (tier thorough, restricted to the harnesses the native sweep flagged: $hits)" >> $out/check_${pid}_thorough.txt)
-    if grep -q "^VIOLATION" $out/check_${pid}_thorough.txt; then cp $out/check_${pid}_thorough.txt $out/check_$pid.txt; fi
-  fi
-fi
-if [ -z "$hits" ] || { ! grep -q "^VIOLATION" $out/check_$pid.txt && grep -q "no obligation was generated" $out/check_$pid.txt; }; then
-  (cd $V && python3 check.py $pid --tier $tier > $out/check_$pid.txt 2>$out/check_$pid.err; echo "exit=$? (tier $tier, full check; native sweep flagged nothing the restricted runs could decide)" >> $out/check_$pid.txt)
-fi
-oif [ -n "$hits" ]; then
-  (cd $V && VERIF_ONLY="$hits" python3 check.py $pid --tier $tier > $out/check_$pid.txt 2>$out/check_$pid.err; echo "exit=$? (tier $tier, restricted to the harnesses the native sweep flagged: $hits)" >> $out/check_$pid.txt)
-  if ! grep -q "^VIOLATION" $out/check_$pid.txt && [ "$tier" = quick ]; then
-    # the flagged harnesses may belong to the thorough tier only (larger bounds, slow ones)
-    (cd $V && VERIF_ONLY="$hits" python3 check.py $pid --tier thorough > $out/check_${pid}_thorough.txt 2>$out/check_${pid}_thorough.err; echo "exit=$? (tier thorough, restricted to the harnesses the native sweep flagged: $hits)" >> $out/check_${pid}_thorough.txt)
-    if grep -q "^VIOLATION" $out/check_${pid}_thorough.txt; then cp $out/check_${pid}_thorough.txt $out/check_$pid.txt; fi
-  fi
-fi
-if [ -z "$hits" ] || { ! grep -q "^VIOLATION" $out/check_$pid.txt && grep -q "no obligation was generated" $out/check_$pid.txt; }; then
-  (cd $V && python3 check.py $pid --tier $tier > $out/check_$pid.txt 2>$out/check_$pid.err; echo "exit=$? (tier $tier, full check; native sweep flagged nothing the restricted runs could decide)" >> $out/check_$pid.txt)
-fi
-pif [ -n "$hits" ]; then
-  (cd $V && VERIF_ONLY="$hits" python3 check.py $pid --tier $tier > $out/check_$pid.txt 2>$out/check_$pid.err; echo "exit=$? (tier $tier, restricted to the harnesses the native sweep flagged: $hits)" >> $out/check_$pid.txt)
-  if ! grep -q "^VIOLATION" $out/check_$pid.txt && [ "$tier" = quick ]; then
-    # the flagged harnesses may belong to the thorough tier only (larger bounds, slow ones)
-    (cd $V && VERIF_ONLY="$hits" python3 check.py $pid --tier thorough > $out/check_${pid}_thorough.txt 2>$out/check_${pid}_thorough.err; echo "exit=$? (tier thorough, restricted to the harnesses the native sweep flagged: $hits)" >> $out/check_${pid}_thorough.txt)
-    if grep -q "^VIOLATION" $out/check_${pid}_thorough.txt; then cp $out/check_${pid}_thorough.txt $out/check_$pid.txt; fi
-  fi
-fi
-if [ -z "$hits" ] || { ! grep -q "^VIOLATION" $out/check_$pid.txt && grep -q "no obligation was generated" $out/check_$pid.txt; }; then
-  (cd $V && python3 check.py $pid --tier $tier > $out/check_$pid.txt 2>$out/check_$pid.err; echo "exit=$? (tier $tier, full check; native sweep flagged nothing the restricted runs could decide)" >> $out/check_$pid.txt)
-fi
-eif [ -n "$hits" ]; then
-  (cd $V && VERIF_ONLY="$hits" python3 check.py $pid --tier $tier > $out/check_$pid.txt 2>$out/check_$pid.err; echo "exit=$? (tier $tier, restricted to the harnesses the native sweep flagged: $hits)" >> $out/check_$pid.txt)
-  if ! grep -q "^VIOLATION" $out/check_$pid.txt && [ "$tier" = quick ]; then
-    # the flagged harnesses may belong to the thorough tier only (larger bounds, slow ones)
-    (cd $V && VERIF_ONLY="$hits" python3 check.py $pid --tier thorough > $out/check_${pid}_thorough.txt 2>$out/check_${pid}_thorough.err; echo "exit=$? (tier thorough, restricted to the harnesses the native sweep flagged: $hits)" >> $out/check_${pid}_thorough.txt)
-    if grep -q "^VIOLATION" $out/check_${pid}_thorough.txt; then cp $out/check_${pid}_thorough.txt $out/check_$pid.txt; fi
-  fi
-fi
-if [ -z "$hits" ] || { ! grep -q "^VIOLATION" $out/check_$pid.txt && grep -q "no obligation was generated" $out/check_$pid.txt; }; then
-  (cd $V && python3 check.py $pid --tier $tier > $out/check_$pid.txt 2>$out/check_$pid.err; echo "exit=$? (tier $tier, full check; native sweep flagged nothing the restricted runs could decide)" >> $out/check_$pid.txt)
-fi
-rif [ -n "$hits" ]; then
-  (cd $V && VERIF_ONLY="$hits" python3 check.py $pid --tier $tier > $out/check_$pid.txt 2>$out/check_$pid.err; echo "exit=$? (tier $tier, restricted to the harnesses the native sweep flagged: $hits)" >> $out/check_$pid.txt)
-  if ! grep -q "^VIOLATION" $out/check_$pid.txt && [ "$tier" = quick ]; then
-    # the flagged harnesses may belong to the thorough tier only (larger bounds, slow ones)
-    (cd $V && VERIF_ONLY="$hits" python3 check.py $pid --tier thorough > $out/check_${pid}_thorough.txt 2>$out/check_${pid}_thorough.err; echo "exit=$? (tier thorough, restricted to the harnesses the native sweep flagged: $hits)" >> $out/check_${pid}_thorough.txt)
-    if grep -q "^VIOLATION" $out/check_${pid}_thorough.txt; then cp $out/check_${pid}_thorough.txt $out/check_$pid.txt; fi
-  fi
-fi
-if [ -z "$hits" ] || { ! grep -q "^VIOLATION" $out/check_$pid.txt && grep -q "no obligation was generated" $out/check_$pid.txt; }; then
-  (cd $V && python3 check.py $pid --tier $tier > $out/check_$pid.txt 2>$out/check_$pid.err; echo "exit=$? (tier $tier, full check; native sweep flagged nothing the restricted runs could decide)" >> $out/check_$pid.txt)
-fi
-tif [ -n "$hits" ]; then
-  (cd $V && VERIF_ONLY="$hits" python3 check.py $pid --tier $tier > $out/check_$pid.txt 2>$out/check_$pid.err; echo "exit=$? (tier $tier, restricted to the harnesses the native sweep flagged: $hits)" >> $out/check_$pid.txt)
-  if ! grep -q "^VIOLATION" $out/check_$pid.txt && [ "$tier" = quick ]; then
-    # the flagged harnesses may belong to the thorough tier only (larger bounds, slow ones)
-    (cd $V && VERIF_ONLY="$hits" python3 check.py $pid --tier thorough > $out/check_${pid}_thorough.txt 2>$out/check_${pid}_thorough.err; echo "exit=$? (tier thorough, restricted to the harnesses the native sweep flagged: $hits)" >> $out/check_${pid}_thorough.txt)
-    if grep -q "^VIOLATION" $out/check_${pid}_thorough.txt; then cp $out/check_${pid}_thorough.txt $out/check_$pid.txt; fi
-  fi
-fi
-if [ -z "$hits" ] || { ! grep -q "^VIOLATION" $out/check_$pid.txt && grep -q "no obligation was generated" $out/check_$pid.txt; }; then
-  (cd $V && python3 check.py $pid --tier $tier > $out/check_$pid.txt 2>$out/check_$pid.err; echo "exit=$? (tier $tier, full check; native sweep flagged nothing the restricted runs could decide)" >> $out/check_$pid.txt)
-fi
-yif [ -n "$hits" ]; then
-  (cd $V && VERIF_ONLY="$hits" python3 check.py $pid --tier $tier > $out/check_$pid.txt 2>$out/check_$pid.err; echo "exit=$? (tier $tier, restricted to the harnesses the native sweep flagged: $hits)" >> $out/check_$pid.txt)
-  if ! grep -q "^VIOLATION" $out/check_$pid.txt && [ "$tier" = quick ]; then
-    # the flagged harnesses may belong to the thorough tier only (larger bounds, slow ones)
-    (cd $V && VERIF_ONLY="$hits" python3 check.py $pid --tier thorough > $out/check_${pid}_thorough.txt 2>$out/check_${pid}_thorough.err; echo "exit=$? (tier thorough, restricted to the harnesses the native sweep flagged: $hits)" >> $out/check_${pid}_thorough.txt)
-    if grep -q "^VIOLATION" $out/check_${pid}_thorough.txt; then cp $out/check_${pid}_thorough.txt $out/check_$pid.txt; fi
-  fi
-fi
-if [ -z "$hits" ] || { ! grep -q "^VIOLATION" $out/check_$pid.txt && grep -q "no obligation was generated" $out/check_$pid.txt; }; then
-  (cd $V && python3 check.py $pid --tier $tier > $out/check_$pid.txt 2>$out/check_$pid.err; echo "exit=$? (tier $tier, full check; native sweep flagged nothing the restricted runs could decide)" >> $out/check_$pid.txt)
-fi
-'if [ -n "$hits" ]; then
-  (cd $V && VERIF_ONLY="$hits" python3 check.py $pid --tier $tier > $out/check_$pid.txt 2>$out/check_$pid.err; echo "exit=$? (tier $tier, restricted to the harnesses the native sweep flagged: $hits)" >> $out/check_$pid.txt)
-  if ! grep -q "^VIOLATION" $out/check_$pid.txt && [ "$tier" = quick ]; then
-    # the flagged harnesses may belong to the thorough tier only (larger bounds, slow ones)
-    (cd $V && VERIF_ONLY="$hits" python3 check.py $pid --tier thorough > $out/check_${pid}_thorough.txt 2>$out/check_${pid}_thorough.err; echo "exit=$? (tier thorough, restricted to the harnesses the native sweep flagged: $hits)" >> $out/check_${pid}_thorough.txt)
-    if grep -q "^VIOLATION" $out/check_${pid}_thorough.txt; then cp $out/check_${pid}_thorough.txt $out/check_$pid.txt; fi
-  fi
-fi
-if [ -z "$hits" ] || { ! grep -q "^VIOLATION" $out/check_$pid.txt && grep -q "no obligation was generated" $out/check_$pid.txt; }; then
-  (cd $V && python3 check.py $pid --tier $tier > $out/check_$pid.txt 2>$out/check_$pid.err; echo "exit=$? (tier $tier, full check; native sweep flagged nothing the restricted runs could decide)" >> $out/check_$pid.txt)
-fi
-sif [ -n "$hits" ]; then
-  (cd $V && VERIF_ONLY="$hits" python3 check.py $pid --tier $tier > $out/check_$pid.txt 2>$out/check_$pid.err; echo "exit=$? (tier $tier, restricted to the harnesses the native sweep flagged: $hits)" >> $out/check_$pid.txt)
-  if ! grep -q "^VIOLATION" $out/check_$pid.txt && [ "$tier" = quick ]; then
-    # the flagged harnesses may belong to the thorough tier only (larger bounds, slow ones)
-    (cd $V && VERIF_ONLY="$hits" python3 check.py $pid --tier thorough > $out/check_${pid}_thorough.txt 2>$out/check_${pid}_thorough.err; echo "exit=$? (tier thorough, restricted to the harnesses the native sweep flagged: $hits)" >> $out/check_${pid}_thorough.txt)
-    if grep -q "^VIOLATION" $out/check_${pid}_thorough.txt; then cp $out/check_${pid}_thorough.txt $out/check_$pid.txt; fi
-  fi
-fi
-if [ -z "$hits" ] || { ! grep -q "^VIOLATION" $out/check_$pid.txt && grep -q "no obligation was generated" $out/check_$pid.txt; }; then
-  (cd $V && python3 check.py $pid --tier $tier > $out/check_$pid.txt 2>$out/check_$pid.err; echo "exit=$? (tier $tier, full check; native sweep flagged nothing the restricted runs could decide)" >> $out/check_$pid.txt)
-fi
- if [ -n "$hits" ]; then
-  (cd $V && VERIF_ONLY="$hits" python3 check.py $pid --tier $tier > $out/check_$pid.txt 2>$out/check_$pid.err; echo "exit=$? (tier $tier, restricted to the harnesses the native sweep flagged: $hits)" >> $out/check_$pid.txt)
-  if ! grep -q "^VIOLATION" $out/check_$pid.txt && [ "$tier" = quick ]; then
-    # the flagged harnesses may belong to the thorough tier only (larger bounds, slow ones)
-    (cd $V && VERIF_ONLY="$hits" python3 check.py $pid --tier thorough > $out/check_${pid}_thorough.txt 2>$out/check_${pid}_thorough.err; echo "exit=$? (tier thorough, restricted to the harnesses the native sweep flagged: $hits)" >> $out/check_${pid}_thorough.txt)
-    if grep -q "^VIOLATION" $out/check_${pid}_thorough.txt; then cp $out/check_${pid}_thorough.txt $out/check_$pid.txt; fi
-  fi
-fi
-if [ -z "$hits" ] || { ! grep -q "^VIOLATION" $out/check_$pid.txt && grep -q "no obligation was generated" $out/check_$pid.txt; }; then
-  (cd $V && python3 check.py $pid --tier $tier > $out/check_$pid.txt 2>$out/check_$pid.err; echo "exit=$? (tier $tier, full check; native sweep flagged nothing the restricted runs could decide)" >> $out/check_$pid.txt)
-fi
-cif [ -n "$hits" ]; then
-  (cd $V && VERIF_ONLY="$hits" python3 check.py $pid --tier $tier > $out/check_$pid.txt 2>$out/check_$pid.err; echo "exit=$? (tier $tier, restricted to the harnesses the native sweep flagged: $hits)" >> $out/check_$pid.txt)
-  if ! grep -q "^VIOLATION" $out/check_$pid.txt && [ "$tier" = quick ]; then
-    # the flagged harnesses may belong to the thorough tier only (larger bounds, slow ones)
-    (cd $V && VERIF_ONLY="$hits" python3 check.py $pid --tier thorough > $out/check_${pid}_thorough.txt 2>$out/check_${pid}_thorough.err; echo "exit=$? (tier thorough, restricted to the harnesses the native sweep flagged: $hits)" >> $out/check_${pid}_thorough.txt)
-    if grep -q "^VIOLATION" $out/check_${pid}_thorough.txt; then cp $out/check_${pid}_thorough.txt $out/check_$pid.txt; fi
-  fi
-fi
-if [ -z "$hits" ] || { ! grep -q "^VIOLATION" $out/check_$pid.txt && grep -q "no obligation was generated" $out/check_$pid.txt; }; then
-  (cd $V && python3 check.py $pid --tier $tier > $out/check_$pid.txt 2>$out/check_$pid.err; echo "exit=$? (tier $tier, full check; native sweep flagged nothing the restricted runs could decide)" >> $out/check_$pid.txt)
-fi
-hif [ -n "$hits" ]; then
-  (cd $V && VERIF_ONLY="$hits" python3 check.py $pid --tier $tier > $out/check_$pid.txt 2>$out/check_$pid.err; echo "exit=$? (tier $tier, restricted to the harnesses the native sweep flagged: $hits)" >> $out/check_$pid.txt)
-  if ! grep -q "^VIOLATION" $out/check_$pid.txt && [ "$tier" = quick ]; then
-    # the flagged harnesses may belong to the thorough tier only (larger bounds, slow ones)
-    (cd $V && VERIF_ONLY="$hits" python3 check.py $pid --tier thorough > $out/check_${pid}_thorough.txt 2>$out/check_${pid}_thorough.err; echo "exit=$? (tier thorough, restricted to the harnesses the native sweep flagged: $hits)" >> $out/check_${pid}_thorough.txt)
-    if grep -q "^VIOLATION" $out/check_${pid}_thorough.txt; then cp $out/check_${pid}_thorough.txt $out/check_$pid.txt; fi
-  fi
-fi
-if [ -z "$hits" ] || { ! grep -q "^VIOLATION" $out/check_$pid.txt && grep -q "no obligation was generated" $out/check_$pid.txt; }; then
-  (cd $V && python3 check.py $pid --tier $tier > $out/check_$pid.txt 2>$out/check_$pid.err; echo "exit=$? (tier $tier, full check; native sweep flagged nothing the restricted runs could decide)" >> $out/check_$pid.txt)
-fi
-eif [ -n "$hits" ]; then
-  (cd $V && VERIF_ONLY="$hits" python3 check.py $pid --tier $tier > $out/check_$pid.txt 2>$out/check_$pid.err; echo "exit=$? (tier $tier, restricted to the harnesses the native sweep flagged: $hits)" >> $out/check_$pid.txt)
-  if ! grep -q "^VIOLATION" $out/check_$pid.txt && [ "$tier" = quick ]; then
-    # the flagged harnesses may belong to the thorough tier only (larger bounds, slow ones)
-    (cd $V && VERIF_ONLY="$hits" python3 check.py $pid --tier thorough > $out/check_${pid}_thorough.txt 2>$out/check_${pid}_thorough.err; echo "exit=$? (tier thorough, restricted to the harnesses the native sweep flagged: $hits)" >> $out/check_${pid}_thorough.txt)
-    if grep -q "^VIOLATION" $out/check_${pid}_thorough.txt; then cp $out/check_${pid}_thorough.txt $out/check_$pid.txt; fi
-  fi
-fi
-if [ -z "$hits" ] || { ! grep -q "^VIOLATION" $out/check_$pid.txt && grep -q "no obligation was generated" $out/check_$pid.txt; }; then
-  (cd $V && python3 check.py $pid --tier $tier > $out/check_$pid.txt 2>$out/check_$pid.err; echo "exit=$? (tier $tier, full check; native sweep flagged nothing the restricted runs could decide)" >> $out/check_$pid.txt)
-fi
-cif [ -n "$hits" ]; then
-  (cd $V && VERIF_ONLY="$hits" python3 check.py $pid --tier $tier > $out/check_$pid.txt 2>$out/check_$pid.err; echo "exit=$? (tier $tier, restricted to the harnesses the native sweep flagged: $hits)" >> $out/check_$pid.txt)
-  if ! grep -q "^VIOLATION" $out/check_$pid.txt && [ "$tier" = quick ]; then
-    # the flagged harnesses may belong to the thorough tier only (larger bounds, slow ones)
-    (cd $V && VERIF_ONLY="$hits" python3 check.py $pid --tier thorough > $out/check_${pid}_thorough.txt 2>$out/check_${pid}_thorough.err; echo "exit=$? (tier thorough, restricted to the harnesses the native sweep flagged: $hits)" >> $out/check_${pid}_thorough.txt)
-    if grep -q "^VIOLATION" $out/check_${pid}_thorough.txt; then cp $out/check_${pid}_thorough.txt $out/check_$pid.txt; fi
-  fi
-fi
-if [ -z "$hits" ] || { ! grep -q "^VIOLATION" $out/check_$pid.txt && grep -q "no obligation was generated" $out/check_$pid.txt; }; then
-  (cd $V && python3 check.py $pid --tier $tier > $out/check_$pid.txt 2>$out/check_$pid.err; echo "exit=$? (tier $tier, full check; native sweep flagged nothing the restricted runs could decide)" >> $out/check_$pid.txt)
-fi
-kif [ -n "$hits" ]; then
-  (cd $V && VERIF_ONLY="$hits" python3 check.py $pid --tier $tier > $out/check_$pid.txt 2>$out/check_$pid.err; echo "exit=$? (tier $tier, restricted to the harnesses the native sweep flagged: $hits)" >> $out/check_$pid.txt)
-  if ! grep -q "^VIOLATION" $out/check_$pid.txt && [ "$tier" = quick ]; then
-    # the flagged harnesses may belong to the thorough tier only (larger bounds, slow ones)
-    (cd $V && VERIF_ONLY="$hits" python3 check.py $pid --tier thorough > $out/check_${pid}_thorough.txt 2>$out/check_${pid}_thorough.err; echo "exit=$? (tier thorough, restricted to the harnesses the native sweep flagged: $hits)" >> $out/check_${pid}_thorough.txt)
-    if grep -q "^VIOLATION" $out/check_${pid}_thorough.txt; then cp $out/check_${pid}_thorough.txt $out/check_$pid.txt; fi
-  fi
-fi
-if [ -z "$hits" ] || { ! grep -q "^VIOLATION" $out/check_$pid.txt && grep -q "no obligation was generated" $out/check_$pid.txt; }; then
-  (cd $V && python3 check.py $pid --tier $tier > $out/check_$pid.txt 2>$out/check_$pid.err; echo "exit=$? (tier $tier, full check; native sweep flagged nothing the restricted runs could decide)" >> $out/check_$pid.txt)
-fi
- if [ -n "$hits" ]; then
-  (cd $V && VERIF_ONLY="$hits" python3 check.py $pid --tier $tier > $out/check_$pid.txt 2>$out/check_$pid.err; echo "exit=$? (tier $tier, restricted to the harnesses the native sweep flagged: $hits)" >> $out/check_$pid.txt)
-  if ! grep -q "^VIOLATION" $out/check_$pid.txt && [ "$tier" = quick ]; then
-    # the flagged harnesses may belong to the thorough tier only (larger bounds, slow ones)
-    (cd $V && VERIF_ONLY="$hits" python3 check.py $pid --tier thorough > $out/check_${pid}_thorough.txt 2>$out/check_${pid}_thorough.err; echo "exit=$? (tier thorough, restricted to the harnesses the native sweep flagged: $hits)" >> $out/check_${pid}_thorough.txt)
-    if grep -q "^VIOLATION" $out/check_${pid}_thorough.txt; then cp $out/check_${pid}_thorough.txt $out/check_$pid.txt; fi
-  fi
-fi
-if [ -z "$hits" ] || { ! grep -q "^VIOLATION" $out/check_$pid.txt && grep -q "no obligation was generated" $out/check_$pid.txt; }; then
-  (cd $V && python3 check.py $pid --tier $tier > $out/check_$pid.txt 2>$out/check_$pid.err; echo "exit=$? (tier $tier, full check; native sweep flagged nothing the restricted runs could decide)" >> $out/check_$pid.txt)
-fi
-aif [ -n "$hits" ]; then
-  (cd $V && VERIF_ONLY="$hits" python3 check.py $pid --tier $tier > $out/check_$pid.txt 2>$out/check_$pid.err; echo "exit=$? (tier $tier, restricted to the harnesses the native sweep flagged: $hits)" >> $out/check_$pid.txt)
-  if ! grep -q "^VIOLATION" $out/check_$pid.txt && [ "$tier" = quick ]; then
-    # the flagged harnesses may belong to the thorough tier only (larger bounds, slow ones)
-    (cd $V && VERIF_ONLY="$hits" python3 check.py $pid --tier thorough > $out/check_${pid}_thorough.txt 2>$out/check_${pid}_thorough.err; echo "exit=$? (tier thorough, restricted to the harnesses the native sweep flagged: $hits)" >> $out/check_${pid}_thorough.txt)
-    if grep -q "^VIOLATION" $out/check_${pid}_thorough.txt; then cp $out/check_${pid}_thorough.txt $out/check_$pid.txt; fi
-  fi
-fi
-if [ -z "$hits" ] || { ! grep -q "^VIOLATION" $out/check_$pid.txt && grep -q "no obligation was generated" $out/check_$pid.txt; }; then
-  (cd $V && python3 check.py $pid --tier $tier > $out/check_$pid.txt 2>$out/check_$pid.err; echo "exit=$? (tier $tier, full check; native sweep flagged nothing the restricted runs could decide)" >> $out/check_$pid.txt)
-fi
-gif [ -n "$hits" ]; then
-  (cd $V && VERIF_ONLY="$hits" python3 check.py $pid --tier $tier > $out/check_$pid.txt 2>$out/check_$pid.err; echo "exit=$? (tier $tier, restricted to the harnesses the native sweep flagged: $hits)" >> $out/check_$pid.txt)
-  if ! grep -q "^VIOLATION" $out/check_$pid.txt && [ "$tier" = quick ]; then
-    # the flagged harnesses may belong to the thorough tier only (larger bounds, slow ones)
-    (cd $V && VERIF_ONLY="$hits" python3 check.py $pid --tier thorough > $out/check_${pid}_thorough.txt 2>$out/check_${pid}_thorough.err; echo "exit=$? (tier thorough, restricted to the harnesses the native sweep flagged: $hits)" >> $out/check_${pid}_thorough.txt)
-    if grep -q "^VIOLATION" $out/check_${pid}_thorough.txt; then cp $out/check_${pid}_thorough.txt $out/check_$pid.txt; fi
-  fi
-fi
-if [ -z "$hits" ] || { ! grep -q "^VIOLATION" $out/check_$pid.txt && grep -q "no obligation was generated" $out/check_$pid.txt; }; then
-  (cd $V && python3 check.py $pid --tier $tier > $out/check_$pid.txt 2>$out/check_$pid.err; echo "exit=$? (tier $tier, full check; native sweep flagged nothing the restricted runs could decide)" >> $out/check_$pid.txt)
-fi
-aif [ -n "$hits" ]; then
-  (cd $V && VERIF_ONLY="$hits" python3 check.py $pid --tier $tier > $out/check_$pid.txt 2>$out/check_$pid.err; echo "exit=$? (tier $tier, restricted to the harnesses the native sweep flagged: $hits)" >> $out/check_$pid.txt)
-  if ! grep -q "^VIOLATION" $out/check_$pid.txt && [ "$tier" = quick ]; then
-    # the flagged harnesses may belong to the thorough tier only (larger bounds, slow ones)
-    (cd $V && VERIF_ONLY="$hits" python3 check.py $pid --tier thorough > $out/check_${pid}_thorough.txt 2>$out/check_${pid}_thorough.err; echo "exit=$? (tier thorough, restricted to the harnesses the native sweep flagged: $hits)" >> $out/check_${pid}_thorough.txt)
-    if grep -q "^VIOLATION" $out/check_${pid}_thorough.txt; then cp $out/check_${pid}_thorough.txt $out/check_$pid.txt; fi
-  fi
-fi
-if [ -z "$hits" ] || { ! grep -q "^VIOLATION" $out/check_$pid.txt && grep -q "no obligation was generated" $out/check_$pid.txt; }; then
-  (cd $V && python3 check.py $pid --tier $tier > $out/check_$pid.txt 2>$out/check_$pid.err; echo "exit=$? (tier $tier, full check; native sweep flagged nothing the restricted runs could decide)" >> $out/check_$pid.txt)
-fi
-iif [ -n "$hits" ]; then
-  (cd $V && VERIF_ONLY="$hits" python3 check.py $pid --tier $tier > $out/check_$pid.txt 2>$out/check_$pid.err; echo "exit=$? (tier $tier, restricted to the harnesses the native sweep flagged: $hits)" >> $out/check_$pid.txt)
-  if ! grep -q "^VIOLATION" $out/check_$pid.txt && [ "$tier" = quick ]; then
-    # the flagged harnesses may belong to the thorough tier only (larger bounds, slow ones)
-    (cd $V && VERIF_ONLY="$hits" python3 check.py $pid --tier thorough > $out/check_${pid}_thorough.txt 2>$out/check_${pid}_thorough.err; echo "exit=$? (tier thorough, restricted to the harnesses the native sweep flagged: $hits)" >> $out/check_${pid}_thorough.txt)
-    if grep -q "^VIOLATION" $out/check_${pid}_thorough.txt; then cp $out/check_${pid}_thorough.txt $out/check_$pid.txt; fi
-  fi
-fi
-if [ -z "$hits" ] || { ! grep -q "^VIOLATION" $out/check_$pid.txt && grep -q "no obligation was generated" $out/check_$pid.txt; }; then
-  (cd $V && python3 check.py $pid --tier $tier > $out/check_$pid.txt 2>$out/check_$pid.err; echo "exit=$? (tier $tier, full check; native sweep flagged nothing the restricted runs could decide)" >> $out/check_$pid.txt)
-fi
-nif [ -n "$hits" ]; then
-  (cd $V && VERIF_ONLY="$hits" python3 check.py $pid --tier $tier > $out/check_$pid.txt 2>$out/check_$pid.err; echo "exit=$? (tier $tier, restricted to the harnesses the native sweep flagged: $hits)" >> $out/check_$pid.txt)
-  if ! grep -q "^VIOLATION" $out/check_$pid.txt && [ "$tier" = quick ]; then
-    # the flagged harnesses may belong to the thorough tier only (larger bounds, slow ones)
-    (cd $V && VERIF_ONLY="$hits" python3 check.py $pid --tier thorough > $out/check_${pid}_thorough.txt 2>$out/check_${pid}_thorough.err; echo "exit=$? (tier thorough, restricted to the harnesses the native sweep flagged: $hits)" >> $out/check_${pid}_thorough.txt)
-    if grep -q "^VIOLATION" $out/check_${pid}_thorough.txt; then cp $out/check_${pid}_thorough.txt $out/check_$pid.txt; fi
-  fi
-fi
-if [ -z "$hits" ] || { ! grep -q "^VIOLATION" $out/check_$pid.txt && grep -q "no obligation was generated" $out/check_$pid.txt; }; then
-  (cd $V && python3 check.py $pid --tier $tier > $out/check_$pid.txt 2>$out/check_$pid.err; echo "exit=$? (tier $tier, full check; native sweep flagged nothing the restricted runs could decide)" >> $out/check_$pid.txt)
-fi
-sif [ -n "$hits" ]; then
-  (cd $V && VERIF_ONLY="$hits" python3 check.py $pid --tier $tier > $out/check_$pid.txt 2>$out/check_$pid.err; echo "exit=$? (tier $tier, restricted to the harnesses the native sweep flagged: $hits)" >> $out/check_$pid.txt)
-  if ! grep -q "^VIOLATION" $out/check_$pid.txt && [ "$tier" = quick ]; then
-    # the flagged harnesses may belong to the thorough tier only (larger bounds, slow ones)
-    (cd $V && VERIF_ONLY="$hits" python3 check.py $pid --tier thorough > $out/check_${pid}_thorough.txt 2>$out/check_${pid}_thorough.err; echo "exit=$? (tier thorough, restricted to the harnesses the native sweep flagged: $hits)" >> $out/check_${pid}_thorough.txt)
-    if grep -q "^VIOLATION" $out/check_${pid}_thorough.txt; then cp $out/check_${pid}_thorough.txt $out/check_$pid.txt; fi
-  fi
-fi
-if [ -z "$hits" ] || { ! grep -q "^VIOLATION" $out/check_$pid.txt && grep -q "no obligation was generated" $out/check_$pid.txt; }; then
-  (cd $V && python3 check.py $pid --tier $tier > $out/check_$pid.txt 2>$out/check_$pid.err; echo "exit=$? (tier $tier, full check; native sweep flagged nothing the restricted runs could decide)" >> $out/check_$pid.txt)
-fi
-tif [ -n "$hits" ]; then
-  (cd $V && VERIF_ONLY="$hits" python3 check.py $pid --tier $tier > $out/check_$pid.txt 2>$out/check_$pid.err; echo "exit=$? (tier $tier, restricted to the harnesses the native sweep flagged: $hits)" >> $out/check_$pid.txt)
-  if ! grep -q "^VIOLATION" $out/check_$pid.txt && [ "$tier" = quick ]; then
-    # the flagged harnesses may belong to the thorough tier only (larger bounds, slow ones)
-    (cd $V && VERIF_ONLY="$hits" python3 check.py $pid --tier thorough > $out/check_${pid}_thorough.txt 2>$out/check_${pid}_thorough.err; echo "exit=$? (tier thorough, restricted to the harnesses the native sweep flagged: $hits)" >> $out/check_${pid}_thorough.txt)
-    if grep -q "^VIOLATION" $out/check_${pid}_thorough.txt; then cp $out/check_${pid}_thorough.txt $out/check_$pid.txt; fi
-  fi
-fi
-if [ -z "$hits" ] || { ! grep -q "^VIOLATION" $out/check_$pid.txt && grep -q "no obligation was generated" $out/check_$pid.txt; }; then
-  (cd $V && python3 check.py $pid --tier $tier > $out/check_$pid.txt 2>$out/check_$pid.err; echo "exit=$? (tier $tier, full check; native sweep flagged nothing the restricted runs could decide)" >> $out/check_$pid.txt)
-fi
- if [ -n "$hits" ]; then
-  (cd $V && VERIF_ONLY="$hits" python3 check.py $pid --tier $tier > $out/check_$pid.txt 2>$out/check_$pid.err; echo "exit=$? (tier $tier, restricted to the harnesses the native sweep flagged: $hits)" >> $out/check_$pid.txt)
-  if ! grep -q "^VIOLATION" $out/check_$pid.txt && [ "$tier" = quick ]; then
-    # the flagged harnesses may belong to the thorough tier only (larger bounds, slow ones)
-    (cd $V && VERIF_ONLY="$hits" python3 check.py $pid --tier thorough > $out/check_${pid}_thorough.txt 2>$out/check_${pid}_thorough.err; echo "exit=$? (tier thorough, restricted to the harnesses the native sweep flagged: $hits)" >> $out/check_${pid}_thorough.txt)
-    if grep -q "^VIOLATION" $out/check_${pid}_thorough.txt; then cp $out/check_${pid}_thorough.txt $out/check_$pid.txt; fi
-  fi
-fi
-if [ -z "$hits" ] || { ! grep -q "^VIOLATION" $out/check_$pid.txt && grep -q "no obligation was generated" $out/check_$pid.txt; }; then
-  (cd $V && python3 check.py $pid --tier $tier > $out/check_$pid.txt 2>$out/check_$pid.err; echo "exit=$? (tier $tier, full check; native sweep flagged nothing the restricted runs could decide)" >> $out/check_$pid.txt)
-fi
-aif [ -n "$hits" ]; then
-  (cd $V && VERIF_ONLY="$hits" python3 check.py $pid --tier $tier > $out/check_$pid.txt 2>$out/check_$pid.err; echo "exit=$? (tier $tier, restricted to the harnesses the native sweep flagged: $hits)" >> $out/check_$pid.txt)
-  if ! grep -q "^VIOLATION" $out/check_$pid.txt && [ "$tier" = quick ]; then
-    # the flagged harnesses may belong to the thorough tier only (larger bounds, slow ones)
-    (cd $V && VERIF_ONLY="$hits" python3 check.py $pid --tier thorough > $out/check_${pid}_thorough.txt 2>$out/check_${pid}_thorough.err; echo "exit=$? (tier thorough, restricted to the harnesses the native sweep flagged: $hits)" >> $out/check_${pid}_thorough.txt)
-    if grep -q "^VIOLATION" $out/check_${pid}_thorough.txt; then cp $out/check_${pid}_thorough.txt $out/check_$pid.txt; fi
-  fi
-fi
-if [ -z "$hits" ] || { ! grep -q "^VIOLATION" $out/check_$pid.txt && grep -q "no obligation was generated" $out/check_$pid.txt; }; then
-  (cd $V && python3 check.py $pid --tier $tier > $out/check_$pid.txt 2>$out/check_$pid.err; echo "exit=$? (tier $tier, full check; native sweep flagged nothing the restricted runs could decide)" >> $out/check_$pid.txt)
-fi
- if [ -n "$hits" ]; then
-  (cd $V && VERIF_ONLY="$hits" python3 check.py $pid --tier $tier > $out/check_$pid.txt 2>$out/check_$pid.err; echo "exit=$? (tier $tier, restricted to the harnesses the native sweep flagged: $hits)" >> $out/check_$pid.txt)
-  if ! grep -q "^VIOLATION" $out/check_$pid.txt && [ "$tier" = quick ]; then
-    # the flagged harnesses may belong to the thorough tier only (larger bounds, slow ones)
-    (cd $V && VERIF_ONLY="$hits" python3 check.py $pid --tier thorough > $out/check_${pid}_thorough.txt 2>$out/check_${pid}_thorough.err; echo "exit=$? (tier thorough, restricted to the harnesses the native sweep flagged: $hits)" >> $out/check_${pid}_thorough.txt)
-    if grep -q "^VIOLATION" $out/check_${pid}_thorough.txt; then cp $out/check_${pid}_thorough.txt $out/check_$pid.txt; fi
-  fi
-fi
-if [ -z "$hits" ] || { ! grep -q "^VIOLATION" $out/check_$pid.txt && grep -q "no obligation was generated" $out/check_$pid.txt; }; then
-  (cd $V && python3 check.py $pid --tier $tier > $out/check_$pid.txt 2>$out/check_$pid.err; echo "exit=$? (tier $tier, full check; native sweep flagged nothing the restricted runs could decide)" >> $out/check_$pid.txt)
-fi
-sif [ -n "$hits" ]; then
-  (cd $V && VERIF_ONLY="$hits" python3 check.py $pid --tier $tier > $out/check_$pid.txt 2>$out/check_$pid.err; echo "exit=$? (tier $tier, restricted to the harnesses the native sweep flagged: $hits)" >> $out/check_$pid.txt)
-  if ! grep -q "^VIOLATION" $out/check_$pid.txt && [ "$tier" = quick ]; then
-    # the flagged harnesses may belong to the thorough tier only (larger bounds, slow ones)
-    (cd $V && VERIF_ONLY="$hits" python3 check.py $pid --tier thorough > $out/check_${pid}_thorough.txt 2>$out/check_${pid}_thorough.err; echo "exit=$? (tier thorough, restricted to the harnesses the native sweep flagged: $hits)" >> $out/check_${pid}_thorough.txt)
-    if grep -q "^VIOLATION" $out/check_${pid}_thorough.txt; then cp $out/check_${pid}_thorough.txt $out/check_$pid.txt; fi
-  fi
-fi
-if [ -z "$hits" ] || { ! grep -q "^VIOLATION" $out/check_$pid.txt && grep -q "no obligation was generated" $out/check_$pid.txt; }; then
-  (cd $V && python3 check.py $pid --tier $tier > $out/check_$pid.txt 2>$out/check_$pid.err; echo "exit=$? (tier $tier, full check; native sweep flagged nothing the restricted runs could decide)" >> $out/check_$pid.txt)
-fi
-eif [ -n "$hits" ]; then
-  (cd $V && VERIF_ONLY="$hits" python3 check.py $pid --tier $tier > $out/check_$pid.txt 2>$out/check_$pid.err; echo "exit=$? (tier $tier, restricted to the harnesses the native sweep flagged: $hits)" >> $out/check_$pid.txt)
-  if ! grep -q "^VIOLATION" $out/check_$pid.txt && [ "$tier" = quick ]; then
-    # the flagged harnesses may belong to the thorough tier only (larger bounds, slow ones)
-    (cd $V && VERIF_ONLY="$hits" python3 check.py $pid --tier thorough > $out/check_${pid}_thorough.txt 2>$out/check_${pid}_thorough.err; echo "exit=$? (tier thorough, restricted to the harnesses the native sweep flagged: $hits)" >> $out/check_${pid}_thorough.txt)
-    if grep -q "^VIOLATION" $out/check_${pid}_thorough.txt; then cp $out/check_${pid}_thorough.txt $out/check_$pid.txt; fi
-  fi
-fi
-if [ -z "$hits" ] || { ! grep -q "^VIOLATION" $out/check_$pid.txt && grep -q "no obligation was generated" $out/check_$pid.txt; }; then
-  (cd $V && python3 check.py $pid --tier $tier > $out/check_$pid.txt 2>$out/check_$pid.err; echo "exit=$? (tier $tier, full check; native sweep flagged nothing the restricted runs could decide)" >> $out/check_$pid.txt)
-fi
-eif [ -n "$hits" ]; then
-  (cd $V && VERIF_ONLY="$hits" python3 check.py $pid --tier $tier > $out/check_$pid.txt 2>$out/check_$pid.err; echo "exit=$? (tier $tier, restricted to the harnesses the native sweep flagged: $hits)" >> $out/check_$pid.txt)
-  if ! grep -q "^VIOLATION" $out/check_$pid.txt && [ "$tier" = quick ]; then
-    # the flagged harnesses may belong to the thorough tier only (larger bounds, slow ones)
-    (cd $V && VERIF_ONLY="$hits" python3 check.py $pid --tier thorough > $out/check_${pid}_thorough.txt 2>$out/check_${pid}_thorough.err; echo "exit=$? (tier thorough, restricted to the harnesses the native sweep flagged: $hits)" >> $out/check_${pid}_thorough.txt)
-    if grep -q "^VIOLATION" $out/check_${pid}_thorough.txt; then cp $out/check_${pid}_thorough.txt $out/check_$pid.txt; fi
-  fi
-fi
-if [ -z "$hits" ] || { ! grep -q "^VIOLATION" $out/check_$pid.txt && grep -q "no obligation was generated" $out/check_$pid.txt; }; then
-  (cd $V && python3 check.py $pid --tier $tier > $out/check_$pid.txt 2>$out/check_$pid.err; echo "exit=$? (tier $tier, full check; native sweep flagged nothing the restricted runs could decide)" >> $out/check_$pid.txt)
-fi
-dif [ -n "$hits" ]; then
-  (cd $V && VERIF_ONLY="$hits" python3 check.py $pid --tier $tier > $out/check_$pid.txt 2>$out/check_$pid.err; echo "exit=$? (tier $tier, restricted to the harnesses the native sweep flagged: $hits)" >> $out/check_$pid.txt)
-  if ! grep -q "^VIOLATION" $out/check_$pid.txt && [ "$tier" = quick ]; then
-    # the flagged harnesses may belong to the thorough tier only (larger bounds, slow ones)
-    (cd $V && VERIF_ONLY="$hits" python3 check.py $pid --tier thorough > $out/check_${pid}_thorough.txt 2>$out/check_${pid}_thorough.err; echo "exit=$? (tier thorough, restricted to the harnesses the native sweep flagged: $hits)" >> $out/check_${pid}_thorough.txt)
-    if grep -q "^VIOLATION" $out/check_${pid}_thorough.txt; then cp $out/check_${pid}_thorough.txt $out/check_$pid.txt; fi
-  fi
-fi
-if [ -z "$hits" ] || { ! grep -q "^VIOLATION" $out/check_$pid.txt && grep -q "no obligation was generated" $out/check_$pid.txt; }; then
-  (cd $V && python3 check.py $pid --tier $tier > $out/check_$pid.txt 2>$out/check_$pid.err; echo "exit=$? (tier $tier, full check; native sweep flagged nothing the restricted runs could decide)" >> $out/check_$pid.txt)
-fi
-eif [ -n "$hits" ]; then
-  (cd $V && VERIF_ONLY="$hits" python3 check.py $pid --tier $tier > $out/check_$pid.txt 2>$out/check_$pid.err; echo "exit=$? (tier $tier, restricted to the harnesses the native sweep flagged: $hits)" >> $out/check_$pid.txt)
-  if ! grep -q "^VIOLATION" $out/check_$pid.txt && [ "$tier" = quick ]; then
-    # the flagged harnesses may belong to the thorough tier only (larger bounds, slow ones)
-    (cd $V && VERIF_ONLY="$hits" python3 check.py $pid --tier thorough > $out/check_${pid}_thorough.txt 2>$out/check_${pid}_thorough.err; echo "exit=$? (tier thorough, restricted to the harnesses the native sweep flagged: $hits)" >> $out/check_${pid}_thorough.txt)
-    if grep -q "^VIOLATION" $out/check_${pid}_thorough.txt; then cp $out/check_${pid}_thorough.txt $out/check_$pid.txt; fi
-  fi
-fi
-if [ -z "$hits" ] || { ! grep -q "^VIOLATION" $out/check_$pid.txt && grep -q "no obligation was generated" $out/check_$pid.txt; }; then
-  (cd $V && python3 check.py $pid --tier $tier > $out/check_$pid.txt 2>$out/check_$pid.err; echo "exit=$? (tier $tier, full check; native sweep flagged nothing the restricted runs could decide)" >> $out/check_$pid.txt)
-fi
-dif [ -n "$hits" ]; then
-  (cd $V && VERIF_ONLY="$hits" python3 check.py $pid --tier $tier > $out/check_$pid.txt 2>$out/check_$pid.err; echo "exit=$? (tier $tier, restricted to the harnesses the native sweep flagged: $hits)" >> $out/check_$pid.txt)
-  if ! grep -q "^VIOLATION" $out/check_$pid.txt && [ "$tier" = quick ]; then
-    # the flagged harnesses may belong to the thorough tier only (larger bounds, slow ones)
-    (cd $V && VERIF_ONLY="$hits" python3 check.py $pid --tier thorough > $out/check_${pid}_thorough.txt 2>$out/check_${pid}_thorough.err; echo "exit=$? (tier thorough, restricted to the harnesses the native sweep flagged: $hits)" >> $out/check_${pid}_thorough.txt)
-    if grep -q "^VIOLATION" $out/check_${pid}_thorough.txt; then cp $out/check_${pid}_thorough.txt $out/check_$pid.txt; fi
-  fi
-fi
-if [ -z "$hits" ] || { ! grep -q "^VIOLATION" $out/check_$pid.txt && grep -q "no obligation was generated" $out/check_$pid.txt; }; then
-  (cd $V && python3 check.py $pid --tier $tier > $out/check_$pid.txt 2>$out/check_$pid.err; echo "exit=$? (tier $tier, full check; native sweep flagged nothing the restricted runs could decide)" >> $out/check_$pid.txt)
-fi
- if [ -n "$hits" ]; then
-  (cd $V && VERIF_ONLY="$hits" python3 check.py $pid --tier $tier > $out/check_$pid.txt 2>$out/check_$pid.err; echo "exit=$? (tier $tier, restricted to the harnesses the native sweep flagged: $hits)" >> $out/check_$pid.txt)
-  if ! grep -q "^VIOLATION" $out/check_$pid.txt && [ "$tier" = quick ]; then
-    # the flagged harnesses may belong to the thorough tier only (larger bounds, slow ones)
-    (cd $V && VERIF_ONLY="$hits" python3 check.py $pid --tier thorough > $out/check_${pid}_thorough.txt 2>$out/check_${pid}_thorough.err; echo "exit=$? (tier thorough, restricted to the harnesses the native sweep flagged: $hits)" >> $out/check_${pid}_thorough.txt)
-    if grep -q "^VIOLATION" $out/check_${pid}_thorough.txt; then cp $out/check_${pid}_thorough.txt $out/check_$pid.txt; fi
-  fi
-fi
-if [ -z "$hits" ] || { ! grep -q "^VIOLATION" $out/check_$pid.txt && grep -q "no obligation was generated" $out/check_$pid.txt; }; then
-  (cd $V && python3 check.py $pid --tier $tier > $out/check_$pid.txt 2>$out/check_$pid.err; echo "exit=$? (tier $tier, full check; native sweep flagged nothing the restricted runs could decide)" >> $out/check_$pid.txt)
-fi
-cif [ -n "$hits" ]; then
-  (cd $V && VERIF_ONLY="$hits" python3 check.py $pid --tier $tier > $out/check_$pid.txt 2>$out/check_$pid.err; echo "exit=$? (tier $tier, restricted to the harnesses the native sweep flagged: $hits)" >> $out/check_$pid.txt)
-  if ! grep -q "^VIOLATION" $out/check_$pid.txt && [ "$tier" = quick ]; then
-    # the flagged harnesses may belong to the thorough tier only (larger bounds, slow ones)
-    (cd $V && VERIF_ONLY="$hits" python3 check.py $pid --tier thorough > $out/check_${pid}_thorough.txt 2>$out/check_${pid}_thorough.err; echo "exit=$? (tier thorough, restricted to the harnesses the native sweep flagged: $hits)" >> $out/check_${pid}_thorough.txt)
-    if grep -q "^VIOLATION" $out/check_${pid}_thorough.txt; then cp $out/check_${pid}_thorough.txt $out/check_$pid.txt; fi
-  fi
-fi
-if [ -z "$hits" ] || { ! grep -q "^VIOLATION" $out/check_$pid.txt && grep -q "no obligation was generated" $out/check_$pid.txt; }; then
-  (cd $V && python3 check.py $pid --tier $tier > $out/check_$pid.txt 2>$out/check_$pid.err; echo "exit=$? (tier $tier, full check; native sweep flagged nothing the restricted runs could decide)" >> $out/check_$pid.txt)
-fi
-hif [ -n "$hits" ]; then
-  (cd $V && VERIF_ONLY="$hits" python3 check.py $pid --tier $tier > $out/check_$pid.txt 2>$out/check_$pid.err; echo "exit=$? (tier $tier, restricted to the harnesses the native sweep flagged: $hits)" >> $out/check_$pid.txt)
-  if ! grep -q "^VIOLATION" $out/check_$pid.txt && [ "$tier" = quick ]; then
-    # the flagged harnesses may belong to the thorough tier only (larger bounds, slow ones)
-    (cd $V && VERIF_ONLY="$hits" python3 check.py $pid --tier thorough > $out/check_${pid}_thorough.txt 2>$out/check_${pid}_thorough.err; echo "exit=$? (tier thorough, restricted to the harnesses the native sweep flagged: $hits)" >> $out/check_${pid}_thorough.txt)
-    if grep -q "^VIOLATION" $out/check_${pid}_thorough.txt; then cp $out/check_${pid}_thorough.txt $out/check_$pid.txt; fi
-  fi
-fi
-if [ -z "$hits" ] || { ! grep -q "^VIOLATION" $out/check_$pid.txt && grep -q "no obligation was generated" $out/check_$pid.txt; }; then
-  (cd $V && python3 check.py $pid --tier $tier > $out/check_$pid.txt 2>$out/check_$pid.err; echo "exit=$? (tier $tier, full check; native sweep flagged nothing the restricted runs could decide)" >> $out/check_$pid.txt)
-fi
-aif [ -n "$hits" ]; then
-  (cd $V && VERIF_ONLY="$hits" python3 check.py $pid --tier $tier > $out/check_$pid.txt 2>$out/check_$pid.err; echo "exit=$? (tier $tier, restricted to the harnesses the native sweep flagged: $hits)" >> $out/check_$pid.txt)
-  if ! grep -q "^VIOLATION" $out/check_$pid.txt && [ "$tier" = quick ]; then
-    # the flagged harnesses may belong to the thorough tier only (larger bounds, slow ones)
-    (cd $V && VERIF_ONLY="$hits" python3 check.py $pid --tier thorough > $out/check_${pid}_thorough.txt 2>$out/check_${pid}_thorough.err; echo "exit=$? (tier thorough, restricted to the harnesses the native sweep flagged: $hits)" >> $out/check_${pid}_thorough.txt)
-    if grep -q "^VIOLATION" $out/check_${pid}_thorough.txt; then cp $out/check_${pid}_thorough.txt $out/check_$pid.txt; fi
-  fi
-fi
-if [ -z "$hits" ] || { ! grep -q "^VIOLATION" $out/check_$pid.txt && grep -q "no obligation was generated" $out/check_$pid.txt; }; then
-  (cd $V && python3 check.py $pid --tier $tier > $out/check_$pid.txt 2>$out/check_$pid.err; echo "exit=$? (tier $tier, full check; native sweep flagged nothing the restricted runs could decide)" >> $out/check_$pid.txt)
-fi
-nif [ -n "$hits" ]; then
-  (cd $V && VERIF_ONLY="$hits" python3 check.py $pid --tier $tier > $out/check_$pid.txt 2>$out/check_$pid.err; echo "exit=$? (tier $tier, restricted to the harnesses the native sweep flagged: $hits)" >> $out/check_$pid.txt)
-  if ! grep -q "^VIOLATION" $out/check_$pid.txt && [ "$tier" = quick ]; then
-    # the flagged harnesses may belong to the thorough tier only (larger bounds, slow ones)
-    (cd $V && VERIF_ONLY="$hits" python3 check.py $pid --tier thorough > $out/check_${pid}_thorough.txt 2>$out/check_${pid}_thorough.err; echo "exit=$? (tier thorough, restricted to the harnesses the native sweep flagged: $hits)" >> $out/check_${pid}_thorough.txt)
-    if grep -q "^VIOLATION" $out/check_${pid}_thorough.txt; then cp $out/check_${pid}_thorough.txt $out/check_$pid.txt; fi
-  fi
-fi
-if [ -z "$hits" ] || { ! grep -q "^VIOLATION" $out/check_$pid.txt && grep -q "no obligation was generated" $out/check_$pid.txt; }; then
-  (cd $V && python3 check.py $pid --tier $tier > $out/check_$pid.txt 2>$out/check_$pid.err; echo "exit=$? (tier $tier, full check; native sweep flagged nothing the restricted runs could decide)" >> $out/check_$pid.txt)
-fi
-gif [ -n "$hits" ]; then
-  (cd $V && VERIF_ONLY="$hits" python3 check.py $pid --tier $tier > $out/check_$pid.txt 2>$out/check_$pid.err; echo "exit=$? (tier $tier, restricted to the harnesses the native sweep flagged: $hits)" >> $out/check_$pid.txt)
-  if ! grep -q "^VIOLATION" $out/check_$pid.txt && [ "$tier" = quick ]; then
-    # the flagged harnesses may belong to the thorough tier only (larger bounds, slow ones)
-    (cd $V && VERIF_ONLY="$hits" python3 check.py $pid --tier thorough > $out/check_${pid}_thorough.txt 2>$out/check_${pid}_thorough.err; echo "exit=$? (tier thorough, restricted to the harnesses the native sweep flagged: $hits)" >> $out/check_${pid}_thorough.txt)
-    if grep -q "^VIOLATION" $out/check_${pid}_thorough.txt; then cp $out/check_${pid}_thorough.txt $out/check_$pid.txt; fi
-  fi
-fi
-if [ -z "$hits" ] || { ! grep -q "^VIOLATION" $out/check_$pid.txt && grep -q "no obligation was generated" $out/check_$pid.txt; }; then
-  (cd $V && python3 check.py $pid --tier $tier > $out/check_$pid.txt 2>$out/check_$pid.err; echo "exit=$? (tier $tier, full check; native sweep flagged nothing the restricted runs could decide)" >> $out/check_$pid.txt)
-fi
-eif [ -n "$hits" ]; then
-  (cd $V && VERIF_ONLY="$hits" python3 check.py $pid --tier $tier > $out/check_$pid.txt 2>$out/check_$pid.err; echo "exit=$? (tier $tier, restricted to the harnesses the native sweep flagged: $hits)" >> $out/check_$pid.txt)
-  if ! grep -q "^VIOLATION" $out/check_$pid.txt && [ "$tier" = quick ]; then
-    # the flagged harnesses may belong to the thorough tier only (larger bounds, slow ones)
-    (cd $V && VERIF_ONLY="$hits" python3 check.py $pid --tier thorough > $out/check_${pid}_thorough.txt 2>$out/check_${pid}_thorough.err; echo "exit=$? (tier thorough, restricted to the harnesses the native sweep flagged: $hits)" >> $out/check_${pid}_thorough.txt)
-    if grep -q "^VIOLATION" $out/check_${pid}_thorough.txt; then cp $out/check_${pid}_thorough.txt $out/check_$pid.txt; fi
-  fi
-fi
-if [ -z "$hits" ] || { ! grep -q "^VIOLATION" $out/check_$pid.txt && grep -q "no obligation was generated" $out/check_$pid.txt; }; then
-  (cd $V && python3 check.py $pid --tier $tier > $out/check_$pid.txt 2>$out/check_$pid.err; echo "exit=$? (tier $tier, full check; native sweep flagged nothing the restricted runs could decide)" >> $out/check_$pid.txt)
-fi
-,if [ -n "$hits" ]; then
-  (cd $V && VERIF_ONLY="$hits" python3 check.py $pid --tier $tier > $out/check_$pid.txt 2>$out/check_$pid.err; echo "exit=$? (tier $tier, restricted to the harnesses the native sweep flagged: $hits)" >> $out/check_$pid.txt)
-  if ! grep -q "^VIOLATION" $out/check_$pid.txt && [ "$tier" = quick ]; then
-    # the flagged harnesses may belong to the thorough tier only (larger bounds, slow ones)
-    (cd $V && VERIF_ONLY="$hits" python3 check.py $pid --tier thorough > $out/check_${pid}_thorough.txt 2>$out/check_${pid}_thorough.err; echo "exit=$? (tier thorough, restricted to the harnesses the native sweep flagged: $hits)" >> $out/check_${pid}_thorough.txt)
-    if grep -q "^VIOLATION" $out/check_${pid}_thorough.txt; then cp $out/check_${pid}_thorough.txt $out/check_$pid.txt; fi
-  fi
-fi
-if [ -z "$hits" ] || { ! grep -q "^VIOLATION" $out/check_$pid.txt && grep -q "no obligation was generated" $out/check_$pid.txt; }; then
-  (cd $V && python3 check.py $pid --tier $tier > $out/check_$pid.txt 2>$out/check_$pid.err; echo "exit=$? (tier $tier, full check; native sweep flagged nothing the restricted runs could decide)" >> $out/check_$pid.txt)
-fi
- if [ -n "$hits" ]; then
-  (cd $V && VERIF_ONLY="$hits" python3 check.py $pid --tier $tier > $out/check_$pid.txt 2>$out/check_$pid.err; echo "exit=$? (tier $tier, restricted to the harnesses the native sweep flagged: $hits)" >> $out/check_$pid.txt)
-  if ! grep -q "^VIOLATION" $out/check_$pid.txt && [ "$tier" = quick ]; then
-    # the flagged harnesses may belong to the thorough tier only (larger bounds, slow ones)
-    (cd $V && VERIF_ONLY="$hits" python3 check.py $pid --tier thorough > $out/check_${pid}_thorough.txt 2>$out/check_${pid}_thorough.err; echo "exit=$? (tier thorough, restricted to the harnesses the native sweep flagged: $hits)" >> $out/check_${pid}_thorough.txt)
-    if grep -q "^VIOLATION" $out/check_${pid}_thorough.txt; then cp $out/check_${pid}_thorough.txt $out/check_$pid.txt; fi
-  fi
-fi
-if [ -z "$hits" ] || { ! grep -q "^VIOLATION" $out/check_$pid.txt && grep -q "no obligation was generated" $out/check_$pid.txt; }; then
-  (cd $V && python3 check.py $pid --tier $tier > $out/check_$pid.txt 2>$out/check_$pid.err; echo "exit=$? (tier $tier, full check; native sweep flagged nothing the restricted runs could decide)" >> $out/check_$pid.txt)
-fi
-iif [ -n "$hits" ]; then
-  (cd $V && VERIF_ONLY="$hits" python3 check.py $pid --tier $tier > $out/check_$pid.txt 2>$out/check_$pid.err; echo "exit=$? (tier $tier, restricted to the harnesses the native sweep flagged: $hits)" >> $out/check_$pid.txt)
-  if ! grep -q "^VIOLATION" $out/check_$pid.txt && [ "$tier" = quick ]; then
-    # the flagged harnesses may belong to the thorough tier only (larger bounds, slow ones)
-    (cd $V && VERIF_ONLY="$hits" python3 check.py $pid --tier thorough > $out/check_${pid}_thorough.txt 2>$out/check_${pid}_thorough.err; echo "exit=$? (tier thorough, restricted to the harnesses the native sweep flagged: $hits)" >> $out/check_${pid}_thorough.txt)
-    if grep -q "^VIOLATION" $out/check_${pid}_thorough.txt; then cp $out/check_${pid}_thorough.txt $out/check_$pid.txt; fi
-  fi
-fi
-if [ -z "$hits" ] || { ! grep -q "^VIOLATION" $out/check_$pid.txt && grep -q "no obligation was generated" $out/check_$pid.txt; }; then
-  (cd $V && python3 check.py $pid --tier $tier > $out/check_$pid.txt 2>$out/check_$pid.err; echo "exit=$? (tier $tier, full check; native sweep flagged nothing the restricted runs could decide)" >> $out/check_$pid.txt)
-fi
-nif [ -n "$hits" ]; then
-  (cd $V && VERIF_ONLY="$hits" python3 check.py $pid --tier $tier > $out/check_$pid.txt 2>$out/check_$pid.err; echo "exit=$? (tier $tier, restricted to the harnesses the native sweep flagged: $hits)" >> $out/check_$pid.txt)
-  if ! grep -q "^VIOLATION" $out/check_$pid.txt && [ "$tier" = quick ]; then
-    # the flagged harnesses may belong to the thorough tier only (larger bounds, slow ones)
-    (cd $V && VERIF_ONLY="$hits" python3 check.py $pid --tier thorough > $out/check_${pid}_thorough.txt 2>$out/check_${pid}_thorough.err; echo "exit=$? (tier thorough, restricted to the harnesses the native sweep flagged: $hits)" >> $out/check_${pid}_thorough.txt)
-    if grep -q "^VIOLATION" $out/check_${pid}_thorough.txt; then cp $out/check_${pid}_thorough.txt $out/check_$pid.txt; fi
-  fi
-fi
-if [ -z "$hits" ] || { ! grep -q "^VIOLATION" $out/check_$pid.txt && grep -q "no obligation was generated" $out/check_$pid.txt; }; then
-  (cd $V && python3 check.py $pid --tier $tier > $out/check_$pid.txt 2>$out/check_$pid.err; echo "exit=$? (tier $tier, full check; native sweep flagged nothing the restricted runs could decide)" >> $out/check_$pid.txt)
-fi
- if [ -n "$hits" ]; then
-  (cd $V && VERIF_ONLY="$hits" python3 check.py $pid --tier $tier > $out/check_$pid.txt 2>$out/check_$pid.err; echo "exit=$? (tier $tier, restricted to the harnesses the native sweep flagged: $hits)" >> $out/check_$pid.txt)
-  if ! grep -q "^VIOLATION" $out/check_$pid.txt && [ "$tier" = quick ]; then
-    # the flagged harnesses may belong to the thorough tier only (larger bounds, slow ones)
-    (cd $V && VERIF_ONLY="$hits" python3 check.py $pid --tier thorough > $out/check_${pid}_thorough.txt 2>$out/check_${pid}_thorough.err; echo "exit=$? (tier thorough, restricted to the harnesses the native sweep flagged: $hits)" >> $out/check_${pid}_thorough.txt)
-    if grep -q "^VIOLATION" $out/check_${pid}_thorough.txt; then cp $out/check_${pid}_thorough.txt $out/check_$pid.txt; fi
-  fi
-fi
-if [ -z "$hits" ] || { ! grep -q "^VIOLATION" $out/check_$pid.txt && grep -q "no obligation was generated" $out/check_$pid.txt; }; then
-  (cd $V && python3 check.py $pid --tier $tier > $out/check_$pid.txt 2>$out/check_$pid.err; echo "exit=$? (tier $tier, full check; native sweep flagged nothing the restricted runs could decide)" >> $out/check_$pid.txt)
-fi
-aif [ -n "$hits" ]; then
-  (cd $V && VERIF_ONLY="$hits" python3 check.py $pid --tier $tier > $out/check_$pid.txt 2>$out/check_$pid.err; echo "exit=$? (tier $tier, restricted to the harnesses the native sweep flagged: $hits)" >> $out/check_$pid.txt)
-  if ! grep -q "^VIOLATION" $out/check_$pid.txt && [ "$tier" = quick ]; then
-    # the flagged harnesses may belong to the thorough tier only (larger bounds, slow ones)
-    (cd $V && VERIF_ONLY="$hits" python3 check.py $pid --tier thorough > $out/check_${pid}_thorough.txt 2>$out/check_${pid}_thorough.err; echo "exit=$? (tier thorough, restricted to the harnesses the native sweep flagged: $hits)" >> $out/check_${pid}_thorough.txt)
-    if grep -q "^VIOLATION" $out/check_${pid}_thorough.txt; then cp $out/check_${pid}_thorough.txt $out/check_$pid.txt; fi
-  fi
-fi
-if [ -z "$hits" ] || { ! grep -q "^VIOLATION" $out/check_$pid.txt && grep -q "no obligation was generated" $out/check_$pid.txt; }; then
-  (cd $V && python3 check.py $pid --tier $tier > $out/check_$pid.txt 2>$out/check_$pid.err; echo "exit=$? (tier $tier, full check; native sweep flagged nothing the restricted runs could decide)" >> $out/check_$pid.txt)
-fi
- if [ -n "$hits" ]; then
-  (cd $V && VERIF_ONLY="$hits" python3 check.py $pid --tier $tier > $out/check_$pid.txt 2>$out/check_$pid.err; echo "exit=$? (tier $tier, restricted to the harnesses the native sweep flagged: $hits)" >> $out/check_$pid.txt)
-  if ! grep -q "^VIOLATION" $out/check_$pid.txt && [ "$tier" = quick ]; then
-    # the flagged harnesses may belong to the thorough tier only (larger bounds, slow ones)
-    (cd $V && VERIF_ONLY="$hits" python3 check.py $pid --tier thorough > $out/check_${pid}_thorough.txt 2>$out/check_${pid}_thorough.err; echo "exit=$? (tier thorough, restricted to the harnesses the native sweep flagged: $hits)" >> $out/check_${pid}_thorough.txt)
-    if grep -q "^VIOLATION" $out/check_${pid}_thorough.txt; then cp $out/check_${pid}_thorough.txt $out/check_$pid.txt; fi
-  fi
-fi
-if [ -z "$hits" ] || { ! grep -q "^VIOLATION" $out/check_$pid.txt && grep -q "no obligation was generated" $out/check_$pid.txt; }; then
-  (cd $V && python3 check.py $pid --tier $tier > $out/check_$pid.txt 2>$out/check_$pid.err; echo "exit=$? (tier $tier, full check; native sweep flagged nothing the restricted runs could decide)" >> $out/check_$pid.txt)
-fi
-sif [ -n "$hits" ]; then
-  (cd $V && VERIF_ONLY="$hits" python3 check.py $pid --tier $tier > $out/check_$pid.txt 2>$out/check_$pid.err; echo "exit=$? (tier $tier, restricted to the harnesses the native sweep flagged: $hits)" >> $out/check_$pid.txt)
-  if ! grep -q "^VIOLATION" $out/check_$pid.txt && [ "$tier" = quick ]; then
-    # the flagged harnesses may belong to the thorough tier only (larger bounds, slow ones)
-    (cd $V && VERIF_ONLY="$hits" python3 check.py $pid --tier thorough > $out/check_${pid}_thorough.txt 2>$out/check_${pid}_thorough.err; echo "exit=$? (tier thorough, restricted to the harnesses the native sweep flagged: $hits)" >> $out/check_${pid}_thorough.txt)
-    if grep -q "^VIOLATION" $out/check_${pid}_thorough.txt; then cp $out/check_${pid}_thorough.txt $out/check_$pid.txt; fi
-  fi
-fi
-if [ -z "$hits" ] || { ! grep -q "^VIOLATION" $out/check_$pid.txt && grep -q "no obligation was generated" $out/check_$pid.txt; }; then
-  (cd $V && python3 check.py $pid --tier $tier > $out/check_$pid.txt 2>$out/check_$pid.err; echo "exit=$? (tier $tier, full check; native sweep flagged nothing the restricted runs could decide)" >> $out/check_$pid.txt)
-fi
-cif [ -n "$hits" ]; then
-  (cd $V && VERIF_ONLY="$hits" python3 check.py $pid --tier $tier > $out/check_$pid.txt 2>$out/check_$pid.err; echo "exit=$? (tier $tier, restricted to the harnesses the native sweep flagged: $hits)" >> $out/check_$pid.txt)
-  if ! grep -q "^VIOLATION" $out/check_$pid.txt && [ "$tier" = quick ]; then
-    # the flagged harnesses may belong to the thorough tier only (larger bounds, slow ones)
-    (cd $V && VERIF_ONLY="$hits" python3 check.py $pid --tier thorough > $out/check_${pid}_thorough.txt 2>$out/check_${pid}_thorough.err; echo "exit=$? (tier thorough, restricted to the harnesses the native sweep flagged: $hits)" >> $out/check_${pid}_thorough.txt)
-    if grep -q "^VIOLATION" $out/check_${pid}_thorough.txt; then cp $out/check_${pid}_thorough.txt $out/check_$pid.txt; fi
-  fi
-fi
-if [ -z "$hits" ] || { ! grep -q "^VIOLATION" $out/check_$pid.txt && grep -q "no obligation was generated" $out/check_$pid.txt; }; then
-  (cd $V && python3 check.py $pid --tier $tier > $out/check_$pid.txt 2>$out/check_$pid.err; echo "exit=$? (tier $tier, full check; native sweep flagged nothing the restricted runs could decide)" >> $out/check_$pid.txt)
-fi
-rif [ -n "$hits" ]; then
-  (cd $V && VERIF_ONLY="$hits" python3 check.py $pid --tier $tier > $out/check_$pid.txt 2>$out/check_$pid.err; echo "exit=$? (tier $tier, restricted to the harnesses the native sweep flagged: $hits)" >> $out/check_$pid.txt)
-  if ! grep -q "^VIOLATION" $out/check_$pid.txt && [ "$tier" = quick ]; then
-    # the flagged harnesses may belong to the thorough tier only (larger bounds, slow ones)
-    (cd $V && VERIF_ONLY="$hits" python3 check.py $pid --tier thorough > $out/check_${pid}_thorough.txt 2>$out/check_${pid}_thorough.err; echo "exit=$? (tier thorough, restricted to the harnesses the native sweep flagged: $hits)" >> $out/check_${pid}_thorough.txt)
-    if grep -q "^VIOLATION" $out/check_${pid}_thorough.txt; then cp $out/check_${pid}_thorough.txt $out/check_$pid.txt; fi
-  fi
-fi
-if [ -z "$hits" ] || { ! grep -q "^VIOLATION" $out/check_$pid.txt && grep -q "no obligation was generated" $out/check_$pid.txt; }; then
-  (cd $V && python3 check.py $pid --tier $tier > $out/check_$pid.txt 2>$out/check_$pid.err; echo "exit=$? (tier $tier, full check; native sweep flagged nothing the restricted runs could decide)" >> $out/check_$pid.txt)
-fi
-aif [ -n "$hits" ]; then
-  (cd $V && VERIF_ONLY="$hits" python3 check.py $pid --tier $tier > $out/check_$pid.txt 2>$out/check_$pid.err; echo "exit=$? (tier $tier, restricted to the harnesses the native sweep flagged: $hits)" >> $out/check_$pid.txt)
-  if ! grep -q "^VIOLATION" $out/check_$pid.txt && [ "$tier" = quick ]; then
-    # the flagged harnesses may belong to the thorough tier only (larger bounds, slow ones)
-    (cd $V && VERIF_ONLY="$hits" python3 check.py $pid --tier thorough > $out/check_${pid}_thorough.txt 2>$out/check_${pid}_thorough.err; echo "exit=$? (tier thorough, restricted to the harnesses the native sweep flagged: $hits)" >> $out/check_${pid}_thorough.txt)
-    if grep -q "^VIOLATION" $out/check_${pid}_thorough.txt; then cp $out/check_${pid}_thorough.txt $out/check_$pid.txt; fi
-  fi
-fi
-if [ -z "$hits" ] || { ! grep -q "^VIOLATION" $out/check_$pid.txt && grep -q "no obligation was generated" $out/check_$pid.txt; }; then
-  (cd $V && python3 check.py $pid --tier $tier > $out/check_$pid.txt 2>$out/check_$pid.err; echo "exit=$? (tier $tier, full check; native sweep flagged nothing the restricted runs could decide)" >> $out/check_$pid.txt)
-fi
-tif [ -n "$hits" ]; then
-  (cd $V && VERIF_ONLY="$hits" python3 check.py $pid --tier $tier > $out/check_$pid.txt 2>$out/check_$pid.err; echo "exit=$? (tier $tier, restricted to the harnesses the native sweep flagged: $hits)" >> $out/check_$pid.txt)
-  if ! grep -q "^VIOLATION" $out/check_$pid.txt && [ "$tier" = quick ]; then
-    # the flagged harnesses may belong to the thorough tier only (larger bounds, slow ones)
-    (cd $V && VERIF_ONLY="$hits" python3 check.py $pid --tier thorough > $out/check_${pid}_thorough.txt 2>$out/check_${pid}_thorough.err; echo "exit=$? (tier thorough, restricted to the harnesses the native sweep flagged: $hits)" >> $out/check_${pid}_thorough.txt)
-    if grep -q "^VIOLATION" $out/check_${pid}_thorough.txt; then cp $out/check_${pid}_thorough.txt $out/check_$pid.txt; fi
-  fi
-fi
-if [ -z "$hits" ] || { ! grep -q "^VIOLATION" $out/check_$pid.txt && grep -q "no obligation was generated" $out/check_$pid.txt; }; then
-  (cd $V && python3 check.py $pid --tier $tier > $out/check_$pid.txt 2>$out/check_$pid.err; echo "exit=$? (tier $tier, full check; native sweep flagged nothing the restricted runs could decide)" >> $out/check_$pid.txt)
-fi
-cif [ -n "$hits" ]; then
-  (cd $V && VERIF_ONLY="$hits" python3 check.py $pid --tier $tier > $out/check_$pid.txt 2>$out/check_$pid.err; echo "exit=$? (tier $tier, restricted to the harnesses the native sweep flagged: $hits)" >> $out/check_$pid.txt)
-  if ! grep -q "^VIOLATION" $out/check_$pid.txt && [ "$tier" = quick ]; then
-    # the flagged harnesses may belong to the thorough tier only (larger bounds, slow ones)
-    (cd $V && VERIF_ONLY="$hits" python3 check.py $pid --tier thorough > $out/check_${pid}_thorough.txt 2>$out/check_${pid}_thorough.err; echo "exit=$? (tier thorough, restricted to the harnesses the native sweep flagged: $hits)" >> $out/check_${pid}_thorough.txt)
-    if grep -q "^VIOLATION" $out/check_${pid}_thorough.txt; then cp $out/check_${pid}_thorough.txt $out/check_$pid.txt; fi
-  fi
-fi
-if [ -z "$hits" ] || { ! grep -q "^VIOLATION" $out/check_$pid.txt && grep -q "no obligation was generated" $out/check_$pid.txt; }; then
-  (cd $V && python3 check.py $pid --tier $tier > $out/check_$pid.txt 2>$out/check_$pid.err; echo "exit=$? (tier $tier, full check; native sweep flagged nothing the restricted runs could decide)" >> $out/check_$pid.txt)
-fi
-hif [ -n "$hits" ]; then
-  (cd $V && VERIF_ONLY="$hits" python3 check.py $pid --tier $tier > $out/check_$pid.txt 2>$out/check_$pid.err; echo "exit=$? (tier $tier, restricted to the harnesses the native sweep flagged: $hits)" >> $out/check_$pid.txt)
-  if ! grep -q "^VIOLATION" $out/check_$pid.txt && [ "$tier" = quick ]; then
-    # the flagged harnesses may belong to the thorough tier only (larger bounds, slow ones)
-    (cd $V && VERIF_ONLY="$hits" python3 check.py $pid --tier thorough > $out/check_${pid}_thorough.txt 2>$out/check_${pid}_thorough.err; echo "exit=$? (tier thorough, restricted to the harnesses the native sweep flagged: $hits)" >> $out/check_${pid}_thorough.txt)
-    if grep -q "^VIOLATION" $out/check_${pid}_thorough.txt; then cp $out/check_${pid}_thorough.txt $out/check_$pid.txt; fi
-  fi
-fi
-if [ -z "$hits" ] || { ! grep -q "^VIOLATION" $out/check_$pid.txt && grep -q "no obligation was generated" $out/check_$pid.txt; }; then
-  (cd $V && python3 check.py $pid --tier $tier > $out/check_$pid.txt 2>$out/check_$pid.err; echo "exit=$? (tier $tier, full check; native sweep flagged nothing the restricted runs could decide)" >> $out/check_$pid.txt)
-fi
-
-if [ -n "$hits" ]; then
-  (cd $V && VERIF_ONLY="$hits" python3 check.py $pid --tier $tier > $out/check_$pid.txt 2>$out/check_$pid.err; echo "exit=$? (tier $tier, restricted to the harnesses the native sweep flagged: $hits)" >> $out/check_$pid.txt)
-  if ! grep -q "^VIOLATION" $out/check_$pid.txt && [ "$tier" = quick ]; then
-    # the flagged harnesses may belong to the thorough tier only (larger bounds, slow ones)
-    (cd $V && VERIF_ONLY="$hits" python3 check.py $pid --tier thorough > $out/check_${pid}_thorough.txt 2>$out/check_${pid}_thorough.err; echo "exit=$? (tier thorough, restricted to the harnesses the native sweep flagged: $hits)" >> $out/check_${pid}_thorough.txt)
-    if grep -q "^VIOLATION" $out/check_${pid}_thorough.txt; then cp $out/check_${pid}_thorough.txt $out/check_$pid.txt; fi
-  fi
-fi
-if [ -z "$hits" ] || { ! grep -q "^VIOLATION" $out/check_$pid.txt && grep -q "no obligation was generated" $out/check_$pid.txt; }; then
-  (cd $V && python3 check.py $pid --tier $tier > $out/check_$pid.txt 2>$out/check_$pid.err; echo "exit=$? (tier $tier, full check; native sweep flagged nothing the restricted runs could decide)" >> $out/check_$pid.txt)
-fi
-#if [ -n "$hits" ]; then
-  (cd $V && VERIF_ONLY="$hits" python3 check.py $pid --tier $tier > $out/check_$pid.txt 2>$out/check_$pid.err; echo "exit=$? (tier $tier, restricted to the harnesses the native sweep flagged: $hits)" >> $out/check_$pid.txt)
-  if ! grep -q "^VIOLATION" $out/check_$pid.txt && [ "$tier" = quick ]; then
-    # the flagged harnesses may belong to the thorough tier only (larger bounds, slow ones)
-    (cd $V && VERIF_ONLY="$hits" python3 check.py $pid --tier thorough > $out/check_${pid}_thorough.txt 2>$out/check_${pid}_thorough.err; echo "exit=$? (tier thorough, restricted to the harnesses the native sweep flagged: $hits)" >> $out/check_${pid}_thorough.txt)
-    if grep -q "^VIOLATION" $out/check_${pid}_thorough.txt; then cp $out/check_${pid}_thorough.txt $out/check_$pid.txt; fi
-  fi
-fi
-if [ -z "$hits" ] || { ! grep -q "^VIOLATION" $out/check_$pid.txt && grep -q "no obligation was generated" $out/check_$pid.txt; }; then
-  (cd $V && python3 check.py $pid --tier $tier > $out/check_$pid.txt 2>$out/check_$pid.err; echo "exit=$? (tier $tier, full check; native sweep flagged nothing the restricted runs could decide)" >> $out/check_$pid.txt)
-fi
- if [ -n "$hits" ]; then
-  (cd $V && VERIF_ONLY="$hits" python3 check.py $pid --tier $tier > $out/check_$pid.txt 2>$out/check_$pid.err; echo "exit=$? (tier $tier, restricted to the harnesses the native sweep flagged: $hits)" >> $out/check_$pid.txt)
-  if ! grep -q "^VIOLATION" $out/check_$pid.txt && [ "$tier" = quick ]; then
-    # the flagged harnesses may belong to the thorough tier only (larger bounds, slow ones)
-    (cd $V && VERIF_ONLY="$hits" python3 check.py $pid --tier thorough > $out/check_${pid}_thorough.txt 2>$out/check_${pid}_thorough.err; echo "exit=$? (tier thorough, restricted to the harnesses the native sweep flagged: $hits)" >> $out/check_${pid}_thorough.txt)
-    if grep -q "^VIOLATION" $out/check_${pid}_thorough.txt; then cp $out/check_${pid}_thorough.txt $out/check_$pid.txt; fi
-  fi
-fi
-if [ -z "$hits" ] || { ! grep -q "^VIOLATION" $out/check_$pid.txt && grep -q "no obligation was generated" $out/check_$pid.txt; }; then
-  (cd $V && python3 check.py $pid --tier $tier > $out/check_$pid.txt 2>$out/check_$pid.err; echo "exit=$? (tier $tier, full check; native sweep flagged nothing the restricted runs could decide)" >> $out/check_$pid.txt)
-fi
-wif [ -n "$hits" ]; then
-  (cd $V && VERIF_ONLY="$hits" python3 check.py $pid --tier $tier > $out/check_$pid.txt 2>$out/check_$pid.err; echo "exit=$? (tier $tier, restricted to the harnesses the native sweep flagged: $hits)" >> $out/check_$pid.txt)
-  if ! grep -q "^VIOLATION" $out/check_$pid.txt && [ "$tier" = quick ]; then
-    # the flagged harnesses may belong to the thorough tier only (larger bounds, slow ones)
-    (cd $V && VERIF_ONLY="$hits" python3 check.py $pid --tier thorough > $out/check_${pid}_thorough.txt 2>$out/check_${pid}_thorough.err; echo "exit=$? (tier thorough, restricted to the harnesses the native sweep flagged: $hits)" >> $out/check_${pid}_thorough.txt)
-    if grep -q "^VIOLATION" $out/check_${pid}_thorough.txt; then cp $out/check_${pid}_thorough.txt $out/check_$pid.txt; fi
-  fi
-fi
-if [ -z "$hits" ] || { ! grep -q "^VIOLATION" $out/check_$pid.txt && grep -q "no obligation was generated" $out/check_$pid.txt; }; then
-  (cd $V && python3 check.py $pid --tier $tier > $out/check_$pid.txt 2>$out/check_$pid.err; echo "exit=$? (tier $tier, full check; native sweep flagged nothing the restricted runs could decide)" >> $out/check_$pid.txt)
-fi
-oif [ -n "$hits" ]; then
-  (cd $V && VERIF_ONLY="$hits" python3 check.py $pid --tier $tier > $out/check_$pid.txt 2>$out/check_$pid.err; echo "exit=$? (tier $tier, restricted to the harnesses the native sweep flagged: $hits)" >> $out/check_$pid.txt)
-  if ! grep -q "^VIOLATION" $out/check_$pid.txt && [ "$tier" = quick ]; then
-    # the flagged harnesses may belong to the thorough tier only (larger bounds, slow ones)
-    (cd $V && VERIF_ONLY="$hits" python3 check.py $pid --tier thorough > $out/check_${pid}_thorough.txt 2>$out/check_${pid}_thorough.err; echo "exit=$? (tier thorough, restricted to the harnesses the native sweep flagged: $hits)" >> $out/check_${pid}_thorough.txt)
-    if grep -q "^VIOLATION" $out/check_${pid}_thorough.txt; then cp $out/check_${pid}_thorough.txt $out/check_$pid.txt; fi
-  fi
-fi
-if [ -z "$hits" ] || { ! grep -q "^VIOLATION" $out/check_$pid.txt && grep -q "no obligation was generated" $out/check_$pid.txt; }; then
-  (cd $V && python3 check.py $pid --tier $tier > $out/check_$pid.txt 2>$out/check_$pid.err; echo "exit=$? (tier $tier, full check; native sweep flagged nothing the restricted runs could decide)" >> $out/check_$pid.txt)
-fi
-rif [ -n "$hits" ]; then
-  (cd $V && VERIF_ONLY="$hits" python3 check.py $pid --tier $tier > $out/check_$pid.txt 2>$out/check_$pid.err; echo "exit=$? (tier $tier, restricted to the harnesses the native sweep flagged: $hits)" >> $out/check_$pid.txt)
-  if ! grep -q "^VIOLATION" $out/check_$pid.txt && [ "$tier" = quick ]; then
-    # the flagged harnesses may belong to the thorough tier only (larger bounds, slow ones)
-    (cd $V && VERIF_ONLY="$hits" python3 check.py $pid --tier thorough > $out/check_${pid}_thorough.txt 2>$out/check_${pid}_thorough.err; echo "exit=$? (tier thorough, restricted to the harnesses the native sweep flagged: $hits)" >> $out/check_${pid}_thorough.txt)
-    if grep -q "^VIOLATION" $out/check_${pid}_thorough.txt; then cp $out/check_${pid}_thorough.txt $out/check_$pid.txt; fi
-  fi
-fi
-if [ -z "$hits" ] || { ! grep -q "^VIOLATION" $out/check_$pid.txt && grep -q "no obligation was generated" $out/check_$pid.txt; }; then
-  (cd $V && python3 check.py $pid --tier $tier > $out/check_$pid.txt 2>$out/check_$pid.err; echo "exit=$? (tier $tier, full check; native sweep flagged nothing the restricted runs could decide)" >> $out/check_$pid.txt)
-fi
-kif [ -n "$hits" ]; then
-  (cd $V && VERIF_ONLY="$hits" python3 check.py $pid --tier $tier > $out/check_$pid.txt 2>$out/check_$pid.err; echo "exit=$? (tier $tier, restricted to the harnesses the native sweep flagged: $hits)" >> $out/check_$pid.txt)
-  if ! grep -q "^VIOLATION" $out/check_$pid.txt && [ "$tier" = quick ]; then
-    # the flagged harnesses may belong to the thorough tier only (larger bounds, slow ones)
-    (cd $V && VERIF_ONLY="$hits" python3 check.py $pid --tier thorough > $out/check_${pid}_thorough.txt 2>$out/check_${pid}_thorough.err; echo "exit=$? (tier thorough, restricted to the harnesses the native sweep flagged: $hits)" >> $out/check_${pid}_thorough.txt)
-    if grep -q "^VIOLATION" $out/check_${pid}_thorough.txt; then cp $out/check_${pid}_thorough.txt $out/check_$pid.txt; fi
-  fi
-fi
-if [ -z "$hits" ] || { ! grep -q "^VIOLATION" $out/check_$pid.txt && grep -q "no obligation was generated" $out/check_$pid.txt; }; then
-  (cd $V && python3 check.py $pid --tier $tier > $out/check_$pid.txt 2>$out/check_$pid.err; echo "exit=$? (tier $tier, full check; native sweep flagged nothing the restricted runs could decide)" >> $out/check_$pid.txt)
-fi
-tif [ -n "$hits" ]; then
-  (cd $V && VERIF_ONLY="$hits" python3 check.py $pid --tier $tier > $out/check_$pid.txt 2>$out/check_$pid.err; echo "exit=$? (tier $tier, restricted to the harnesses the native sweep flagged: $hits)" >> $out/check_$pid.txt)
-  if ! grep -q "^VIOLATION" $out/check_$pid.txt && [ "$tier" = quick ]; then
-    # the flagged harnesses may belong to the thorough tier only (larger bounds, slow ones)
-    (cd $V && VERIF_ONLY="$hits" python3 check.py $pid --tier thorough > $out/check_${pid}_thorough.txt 2>$out/check_${pid}_thorough.err; echo "exit=$? (tier thorough, restricted to the harnesses the native sweep flagged: $hits)" >> $out/check_${pid}_thorough.txt)
-    if grep -q "^VIOLATION" $out/check_${pid}_thorough.txt; then cp $out/check_${pid}_thorough.txt $out/check_$pid.txt; fi
-  fi
-fi
-if [ -z "$hits" ] || { ! grep -q "^VIOLATION" $out/check_$pid.txt && grep -q "no obligation was generated" $out/check_$pid.txt; }; then
-  (cd $V && python3 check.py $pid --tier $tier > $out/check_$pid.txt 2>$out/check_$pid.err; echo "exit=$? (tier $tier, full check; native sweep flagged nothing the restricted runs could decide)" >> $out/check_$pid.txt)
-fi
-rif [ -n "$hits" ]; then
-  (cd $V && VERIF_ONLY="$hits" python3 check.py $pid --tier $tier > $out/check_$pid.txt 2>$out/check_$pid.err; echo "exit=$? (tier $tier, restricted to the harnesses the native sweep flagged: $hits)" >> $out/check_$pid.txt)
-  if ! grep -q "^VIOLATION" $out/check_$pid.txt && [ "$tier" = quick ]; then
-    # the flagged harnesses may belong to the thorough tier only (larger bounds, slow ones)
-    (cd $V && VERIF_ONLY="$hits" python3 check.py $pid --tier thorough > $out/check_${pid}_thorough.txt 2>$out/check_${pid}_thorough.err; echo "exit=$? (tier thorough, restricted to the harnesses the native sweep flagged: $hits)" >> $out/check_${pid}_thorough.txt)
-    if grep -q "^VIOLATION" $out/check_${pid}_thorough.txt; then cp $out/check_${pid}_thorough.txt $out/check_$pid.txt; fi
-  fi
-fi
-if [ -z "$hits" ] || { ! grep -q "^VIOLATION" $out/check_$pid.txt && grep -q "no obligation was generated" $out/check_$pid.txt; }; then
-  (cd $V && python3 check.py $pid --tier $tier > $out/check_$pid.txt 2>$out/check_$pid.err; echo "exit=$? (tier $tier, full check; native sweep flagged nothing the restricted runs could decide)" >> $out/check_$pid.txt)
-fi
-eif [ -n "$hits" ]; then
-  (cd $V && VERIF_ONLY="$hits" python3 check.py $pid --tier $tier > $out/check_$pid.txt 2>$out/check_$pid.err; echo "exit=$? (tier $tier, restricted to the harnesses the native sweep flagged: $hits)" >> $out/check_$pid.txt)
-  if ! grep -q "^VIOLATION" $out/check_$pid.txt && [ "$tier" = quick ]; then
-    # the flagged harnesses may belong to the thorough tier only (larger bounds, slow ones)
-    (cd $V && VERIF_ONLY="$hits" python3 check.py $pid --tier thorough > $out/check_${pid}_thorough.txt 2>$out/check_${pid}_thorough.err; echo "exit=$? (tier thorough, restricted to the harnesses the native sweep flagged: $hits)" >> $out/check_${pid}_thorough.txt)
-    if grep -q "^VIOLATION" $out/check_${pid}_thorough.txt; then cp $out/check_${pid}_thorough.txt $out/check_$pid.txt; fi
-  fi
-fi
-if [ -z "$hits" ] || { ! grep -q "^VIOLATION" $out/check_$pid.txt && grep -q "no obligation was generated" $out/check_$pid.txt; }; then
-  (cd $V && python3 check.py $pid --tier $tier > $out/check_$pid.txt 2>$out/check_$pid.err; echo "exit=$? (tier $tier, full check; native sweep flagged nothing the restricted runs could decide)" >> $out/check_$pid.txt)
-fi
-eif [ -n "$hits" ]; then
-  (cd $V && VERIF_ONLY="$hits" python3 check.py $pid --tier $tier > $out/check_$pid.txt 2>$out/check_$pid.err; echo "exit=$? (tier $tier, restricted to the harnesses the native sweep flagged: $hits)" >> $out/check_$pid.txt)
-  if ! grep -q "^VIOLATION" $out/check_$pid.txt && [ "$tier" = quick ]; then
-    # the flagged harnesses may belong to the thorough tier only (larger bounds, slow ones)
-    (cd $V && VERIF_ONLY="$hits" python3 check.py $pid --tier thorough > $out/check_${pid}_thorough.txt 2>$out/check_${pid}_thorough.err; echo "exit=$? (tier thorough, restricted to the harnesses the native sweep flagged: $hits)" >> $out/check_${pid}_thorough.txt)
-    if grep -q "^VIOLATION" $out/check_${pid}_thorough.txt; then cp $out/check_${pid}_thorough.txt $out/check_$pid.txt; fi
-  fi
-fi
-if [ -z "$hits" ] || { ! grep -q "^VIOLATION" $out/check_$pid.txt && grep -q "no obligation was generated" $out/check_$pid.txt; }; then
-  (cd $V && python3 check.py $pid --tier $tier > $out/check_$pid.txt 2>$out/check_$pid.err; echo "exit=$? (tier $tier, full check; native sweep flagged nothing the restricted runs could decide)" >> $out/check_$pid.txt)
-fi
- if [ -n "$hits" ]; then
-  (cd $V && VERIF_ONLY="$hits" python3 check.py $pid --tier $tier > $out/check_$pid.txt 2>$out/check_$pid.err; echo "exit=$? (tier $tier, restricted to the harnesses the native sweep flagged: $hits)" >> $out/check_$pid.txt)
-  if ! grep -q "^VIOLATION" $out/check_$pid.txt && [ "$tier" = quick ]; then
-    # the flagged harnesses may belong to the thorough tier only (larger bounds, slow ones)
-    (cd $V && VERIF_ONLY="$hits" python3 check.py $pid --tier thorough > $out/check_${pid}_thorough.txt 2>$out/check_${pid}_thorough.err; echo "exit=$? (tier thorough, restricted to the harnesses the native sweep flagged: $hits)" >> $out/check_${pid}_thorough.txt)
-    if grep -q "^VIOLATION" $out/check_${pid}_thorough.txt; then cp $out/check_${pid}_thorough.txt $out/check_$pid.txt; fi
-  fi
-fi
-if [ -z "$hits" ] || { ! grep -q "^VIOLATION" $out/check_$pid.txt && grep -q "no obligation was generated" $out/check_$pid.txt; }; then
-  (cd $V && python3 check.py $pid --tier $tier > $out/check_$pid.txt 2>$out/check_$pid.err; echo "exit=$? (tier $tier, full check; native sweep flagged nothing the restricted runs could decide)" >> $out/check_$pid.txt)
-fi
-oif [ -n "$hits" ]; then
-  (cd $V && VERIF_ONLY="$hits" python3 check.py $pid --tier $tier > $out/check_$pid.txt 2>$out/check_$pid.err; echo "exit=$? (tier $tier, restricted to the harnesses the native sweep flagged: $hits)" >> $out/check_$pid.txt)
-  if ! grep -q "^VIOLATION" $out/check_$pid.txt && [ "$tier" = quick ]; then
-    # the flagged harnesses may belong to the thorough tier only (larger bounds, slow ones)
-    (cd $V && VERIF_ONLY="$hits" python3 check.py $pid --tier thorough > $out/check_${pid}_thorough.txt 2>$out/check_${pid}_thorough.err; echo "exit=$? (tier thorough, restricted to the harnesses the native sweep flagged: $hits)" >> $out/check_${pid}_thorough.txt)
-    if grep -q "^VIOLATION" $out/check_${pid}_thorough.txt; then cp $out/check_${pid}_thorough.txt $out/check_$pid.txt; fi
-  fi
-fi
-if [ -z "$hits" ] || { ! grep -q "^VIOLATION" $out/check_$pid.txt && grep -q "no obligation was generated" $out/check_$pid.txt; }; then
-  (cd $V && python3 check.py $pid --tier $tier > $out/check_$pid.txt 2>$out/check_$pid.err; echo "exit=$? (tier $tier, full check; native sweep flagged nothing the restricted runs could decide)" >> $out/check_$pid.txt)
-fi
-fif [ -n "$hits" ]; then
-  (cd $V && VERIF_ONLY="$hits" python3 check.py $pid --tier $tier > $out/check_$pid.txt 2>$out/check_$pid.err; echo "exit=$? (tier $tier, restricted to the harnesses the native sweep flagged: $hits)" >> $out/check_$pid.txt)
-  if ! grep -q "^VIOLATION" $out/check_$pid.txt && [ "$tier" = quick ]; then
-    # the flagged harnesses may belong to the thorough tier only (larger bounds, slow ones)
-    (cd $V && VERIF_ONLY="$hits" python3 check.py $pid --tier thorough > $out/check_${pid}_thorough.txt 2>$out/check_${pid}_thorough.err; echo "exit=$? (tier thorough, restricted to the harnesses the native sweep flagged: $hits)" >> $out/check_${pid}_thorough.txt)
-    if grep -q "^VIOLATION" $out/check_${pid}_thorough.txt; then cp $out/check_${pid}_thorough.txt $out/check_$pid.txt; fi
-  fi
-fi
-if [ -z "$hits" ] || { ! grep -q "^VIOLATION" $out/check_$pid.txt && grep -q "no obligation was generated" $out/check_$pid.txt; }; then
-  (cd $V && python3 check.py $pid --tier $tier > $out/check_$pid.txt 2>$out/check_$pid.err; echo "exit=$? (tier $tier, full check; native sweep flagged nothing the restricted runs could decide)" >> $out/check_$pid.txt)
-fi
- if [ -n "$hits" ]; then
-  (cd $V && VERIF_ONLY="$hits" python3 check.py $pid --tier $tier > $out/check_$pid.txt 2>$out/check_$pid.err; echo "exit=$? (tier $tier, restricted to the harnesses the native sweep flagged: $hits)" >> $out/check_$pid.txt)
-  if ! grep -q "^VIOLATION" $out/check_$pid.txt && [ "$tier" = quick ]; then
-    # the flagged harnesses may belong to the thorough tier only (larger bounds, slow ones)
-    (cd $V && VERIF_ONLY="$hits" python3 check.py $pid --tier thorough > $out/check_${pid}_thorough.txt 2>$out/check_${pid}_thorough.err; echo "exit=$? (tier thorough, restricted to the harnesses the native sweep flagged: $hits)" >> $out/check_${pid}_thorough.txt)
-    if grep -q "^VIOLATION" $out/check_${pid}_thorough.txt; then cp $out/check_${pid}_thorough.txt $out/check_$pid.txt; fi
-  fi
-fi
-if [ -z "$hits" ] || { ! grep -q "^VIOLATION" $out/check_$pid.txt && grep -q "no obligation was generated" $out/check_$pid.txt; }; then
-  (cd $V && python3 check.py $pid --tier $tier > $out/check_$pid.txt 2>$out/check_$pid.err; echo "exit=$? (tier $tier, full check; native sweep flagged nothing the restricted runs could decide)" >> $out/check_$pid.txt)
-fi
-tif [ -n "$hits" ]; then
-  (cd $V && VERIF_ONLY="$hits" python3 check.py $pid --tier $tier > $out/check_$pid.txt 2>$out/check_$pid.err; echo "exit=$? (tier $tier, restricted to the harnesses the native sweep flagged: $hits)" >> $out/check_$pid.txt)
-  if ! grep -q "^VIOLATION" $out/check_$pid.txt && [ "$tier" = quick ]; then
-    # the flagged harnesses may belong to the thorough tier only (larger bounds, slow ones)
-    (cd $V && VERIF_ONLY="$hits" python3 check.py $pid --tier thorough > $out/check_${pid}_thorough.txt 2>$out/check_${pid}_thorough.err; echo "exit=$? (tier thorough, restricted to the harnesses the native sweep flagged: $hits)" >> $out/check_${pid}_thorough.txt)
-    if grep -q "^VIOLATION" $out/check_${pid}_thorough.txt; then cp $out/check_${pid}_thorough.txt $out/check_$pid.txt; fi
-  fi
-fi
-if [ -z "$hits" ] || { ! grep -q "^VIOLATION" $out/check_$pid.txt && grep -q "no obligation was generated" $out/check_$pid.txt; }; then
-  (cd $V && python3 check.py $pid --tier $tier > $out/check_$pid.txt 2>$out/check_$pid.err; echo "exit=$? (tier $tier, full check; native sweep flagged nothing the restricted runs could decide)" >> $out/check_$pid.txt)
-fi
-hif [ -n "$hits" ]; then
-  (cd $V && VERIF_ONLY="$hits" python3 check.py $pid --tier $tier > $out/check_$pid.txt 2>$out/check_$pid.err; echo "exit=$? (tier $tier, restricted to the harnesses the native sweep flagged: $hits)" >> $out/check_$pid.txt)
-  if ! grep -q "^VIOLATION" $out/check_$pid.txt && [ "$tier" = quick ]; then
-    # the flagged harnesses may belong to the thorough tier only (larger bounds, slow ones)
-    (cd $V && VERIF_ONLY="$hits" python3 check.py $pid --tier thorough > $out/check_${pid}_thorough.txt 2>$out/check_${pid}_thorough.err; echo "exit=$? (tier thorough, restricted to the harnesses the native sweep flagged: $hits)" >> $out/check_${pid}_thorough.txt)
-    if grep -q "^VIOLATION" $out/check_${pid}_thorough.txt; then cp $out/check_${pid}_thorough.txt $out/check_$pid.txt; fi
-  fi
-fi
-if [ -z "$hits" ] || { ! grep -q "^VIOLATION" $out/check_$pid.txt && grep -q "no obligation was generated" $out/check_$pid.txt; }; then
-  (cd $V && python3 check.py $pid --tier $tier > $out/check_$pid.txt 2>$out/check_$pid.err; echo "exit=$? (tier $tier, full check; native sweep flagged nothing the restricted runs could decide)" >> $out/check_$pid.txt)
-fi
-eif [ -n "$hits" ]; then
-  (cd $V && VERIF_ONLY="$hits" python3 check.py $pid --tier $tier > $out/check_$pid.txt 2>$out/check_$pid.err; echo "exit=$? (tier $tier, restricted to the harnesses the native sweep flagged: $hits)" >> $out/check_$pid.txt)
-  if ! grep -q "^VIOLATION" $out/check_$pid.txt && [ "$tier" = quick ]; then
-    # the flagged harnesses may belong to the thorough tier only (larger bounds, slow ones)
-    (cd $V && VERIF_ONLY="$hits" python3 check.py $pid --tier thorough > $out/check_${pid}_thorough.txt 2>$out/check_${pid}_thorough.err; echo "exit=$? (tier thorough, restricted to the harnesses the native sweep flagged: $hits)" >> $out/check_${pid}_thorough.txt)
-    if grep -q "^VIOLATION" $out/check_${pid}_thorough.txt; then cp $out/check_${pid}_thorough.txt $out/check_$pid.txt; fi
-  fi
-fi
-if [ -z "$hits" ] || { ! grep -q "^VIOLATION" $out/check_$pid.txt && grep -q "no obligation was generated" $out/check_$pid.txt; }; then
-  (cd $V && python3 check.py $pid --tier $tier > $out/check_$pid.txt 2>$out/check_$pid.err; echo "exit=$? (tier $tier, full check; native sweep flagged nothing the restricted runs could decide)" >> $out/check_$pid.txt)
-fi
- if [ -n "$hits" ]; then
-  (cd $V && VERIF_ONLY="$hits" python3 check.py $pid --tier $tier > $out/check_$pid.txt 2>$out/check_$pid.err; echo "exit=$? (tier $tier, restricted to the harnesses the native sweep flagged: $hits)" >> $out/check_$pid.txt)
-  if ! grep -q "^VIOLATION" $out/check_$pid.txt && [ "$tier" = quick ]; then
-    # the flagged harnesses may belong to the thorough tier only (larger bounds, slow ones)
-    (cd $V && VERIF_ONLY="$hits" python3 check.py $pid --tier thorough > $out/check_${pid}_thorough.txt 2>$out/check_${pid}_thorough.err; echo "exit=$? (tier thorough, restricted to the harnesses the native sweep flagged: $hits)" >> $out/check_${pid}_thorough.txt)
-    if grep -q "^VIOLATION" $out/check_${pid}_thorough.txt; then cp $out/check_${pid}_thorough.txt $out/check_$pid.txt; fi
-  fi
-fi
-if [ -z "$hits" ] || { ! grep -q "^VIOLATION" $out/check_$pid.txt && grep -q "no obligation was generated" $out/check_$pid.txt; }; then
-  (cd $V && python3 check.py $pid --tier $tier > $out/check_$pid.txt 2>$out/check_$pid.err; echo "exit=$? (tier $tier, full check; native sweep flagged nothing the restricted runs could decide)" >> $out/check_$pid.txt)
-fi
-rif [ -n "$hits" ]; then
-  (cd $V && VERIF_ONLY="$hits" python3 check.py $pid --tier $tier > $out/check_$pid.txt 2>$out/check_$pid.err; echo "exit=$? (tier $tier, restricted to the harnesses the native sweep flagged: $hits)" >> $out/check_$pid.txt)
-  if ! grep -q "^VIOLATION" $out/check_$pid.txt && [ "$tier" = quick ]; then
-    # the flagged harnesses may belong to the thorough tier only (larger bounds, slow ones)
-    (cd $V && VERIF_ONLY="$hits" python3 check.py $pid --tier thorough > $out/check_${pid}_thorough.txt 2>$out/check_${pid}_thorough.err; echo "exit=$? (tier thorough, restricted to the harnesses the native sweep flagged: $hits)" >> $out/check_${pid}_thorough.txt)
-    if grep -q "^VIOLATION" $out/check_${pid}_thorough.txt; then cp $out/check_${pid}_thorough.txt $out/check_$pid.txt; fi
-  fi
-fi
-if [ -z "$hits" ] || { ! grep -q "^VIOLATION" $out/check_$pid.txt && grep -q "no obligation was generated" $out/check_$pid.txt; }; then
-  (cd $V && python3 check.py $pid --tier $tier > $out/check_$pid.txt 2>$out/check_$pid.err; echo "exit=$? (tier $tier, full check; native sweep flagged nothing the restricted runs could decide)" >> $out/check_$pid.txt)
-fi
-eif [ -n "$hits" ]; then
-  (cd $V && VERIF_ONLY="$hits" python3 check.py $pid --tier $tier > $out/check_$pid.txt 2>$out/check_$pid.err; echo "exit=$? (tier $tier, restricted to the harnesses the native sweep flagged: $hits)" >> $out/check_$pid.txt)
-  if ! grep -q "^VIOLATION" $out/check_$pid.txt && [ "$tier" = quick ]; then
-    # the flagged harnesses may belong to the thorough tier only (larger bounds, slow ones)
-    (cd $V && VERIF_ONLY="$hits" python3 check.py $pid --tier thorough > $out/check_${pid}_thorough.txt 2>$out/check_${pid}_thorough.err; echo "exit=$? (tier thorough, restricted to the harnesses the native sweep flagged: $hits)" >> $out/check_${pid}_thorough.txt)
-    if grep -q "^VIOLATION" $out/check_${pid}_thorough.txt; then cp $out/check_${pid}_thorough.txt $out/check_$pid.txt; fi
-  fi
-fi
-if [ -z "$hits" ] || { ! grep -q "^VIOLATION" $out/check_$pid.txt && grep -q "no obligation was generated" $out/check_$pid.txt; }; then
-  (cd $V && python3 check.py $pid --tier $tier > $out/check_$pid.txt 2>$out/check_$pid.err; echo "exit=$? (tier $tier, full check; native sweep flagged nothing the restricted runs could decide)" >> $out/check_$pid.txt)
-fi
-pif [ -n "$hits" ]; then
-  (cd $V && VERIF_ONLY="$hits" python3 check.py $pid --tier $tier > $out/check_$pid.txt 2>$out/check_$pid.err; echo "exit=$? (tier $tier, restricted to the harnesses the native sweep flagged: $hits)" >> $out/check_$pid.txt)
-  if ! grep -q "^VIOLATION" $out/check_$pid.txt && [ "$tier" = quick ]; then
-    # the flagged harnesses may belong to the thorough tier only (larger bounds, slow ones)
-    (cd $V && VERIF_ONLY="$hits" python3 check.py $pid --tier thorough > $out/check_${pid}_thorough.txt 2>$out/check_${pid}_thorough.err; echo "exit=$? (tier thorough, restricted to the harnesses the native sweep flagged: $hits)" >> $out/check_${pid}_thorough.txt)
-    if grep -q "^VIOLATION" $out/check_${pid}_thorough.txt; then cp $out/check_${pid}_thorough.txt $out/check_$pid.txt; fi
-  fi
-fi
-if [ -z "$hits" ] || { ! grep -q "^VIOLATION" $out/check_$pid.txt && grep -q "no obligation was generated" $out/check_$pid.txt; }; then
-  (cd $V && python3 check.py $pid --tier $tier > $out/check_$pid.txt 2>$out/check_$pid.err; echo "exit=$? (tier $tier, full check; native sweep flagged nothing the restricted runs could decide)" >> $out/check_$pid.txt)
-fi
-oif [ -n "$hits" ]; then
-  (cd $V && VERIF_ONLY="$hits" python3 check.py $pid --tier $tier > $out/check_$pid.txt 2>$out/check_$pid.err; echo "exit=$? (tier $tier, restricted to the harnesses the native sweep flagged: $hits)" >> $out/check_$pid.txt)
-  if ! grep -q "^VIOLATION" $out/check_$pid.txt && [ "$tier" = quick ]; then
-    # the flagged harnesses may belong to the thorough tier only (larger bounds, slow ones)
-    (cd $V && VERIF_ONLY="$hits" python3 check.py $pid --tier thorough > $out/check_${pid}_thorough.txt 2>$out/check_${pid}_thorough.err; echo "exit=$? (tier thorough, restricted to the harnesses the native sweep flagged: $hits)" >> $out/check_${pid}_thorough.txt)
-    if grep -q "^VIOLATION" $out/check_${pid}_thorough.txt; then cp $out/check_${pid}_thorough.txt $out/check_$pid.txt; fi
-  fi
-fi
-if [ -z "$hits" ] || { ! grep -q "^VIOLATION" $out/check_$pid.txt && grep -q "no obligation was generated" $out/check_$pid.txt; }; then
-  (cd $V && python3 check.py $pid --tier $tier > $out/check_$pid.txt 2>$out/check_$pid.err; echo "exit=$? (tier $tier, full check; native sweep flagged nothing the restricted runs could decide)" >> $out/check_$pid.txt)
-fi
-sif [ -n "$hits" ]; then
-  (cd $V && VERIF_ONLY="$hits" python3 check.py $pid --tier $tier > $out/check_$pid.txt 2>$out/check_$pid.err; echo "exit=$? (tier $tier, restricted to the harnesses the native sweep flagged: $hits)" >> $out/check_$pid.txt)
-  if ! grep -q "^VIOLATION" $out/check_$pid.txt && [ "$tier" = quick ]; then
-    # the flagged harnesses may belong to the thorough tier only (larger bounds, slow ones)
-    (cd $V && VERIF_ONLY="$hits" python3 check.py $pid --tier thorough > $out/check_${pid}_thorough.txt 2>$out/check_${pid}_thorough.err; echo "exit=$? (tier thorough, restricted to the harnesses the native sweep flagged: $hits)" >> $out/check_${pid}_thorough.txt)
-    if grep -q "^VIOLATION" $out/check_${pid}_thorough.txt; then cp $out/check_${pid}_thorough.txt $out/check_$pid.txt; fi
-  fi
-fi
-if [ -z "$hits" ] || { ! grep -q "^VIOLATION" $out/check_$pid.txt && grep -q "no obligation was generated" $out/check_$pid.txt; }; then
-  (cd $V && python3 check.py $pid --tier $tier > $out/check_$pid.txt 2>$out/check_$pid.err; echo "exit=$? (tier $tier, full check; native sweep flagged nothing the restricted runs could decide)" >> $out/check_$pid.txt)
-fi
-iif [ -n "$hits" ]; then
-  (cd $V && VERIF_ONLY="$hits" python3 check.py $pid --tier $tier > $out/check_$pid.txt 2>$out/check_$pid.err; echo "exit=$? (tier $tier, restricted to the harnesses the native sweep flagged: $hits)" >> $out/check_$pid.txt)
-  if ! grep -q "^VIOLATION" $out/check_$pid.txt && [ "$tier" = quick ]; then
-    # the flagged harnesses may belong to the thorough tier only (larger bounds, slow ones)
-    (cd $V && VERIF_ONLY="$hits" python3 check.py $pid --tier thorough > $out/check_${pid}_thorough.txt 2>$out/check_${pid}_thorough.err; echo "exit=$? (tier thorough, restricted to the harnesses the native sweep flagged: $hits)" >> $out/check_${pid}_thorough.txt)
-    if grep -q "^VIOLATION" $out/check_${pid}_thorough.txt; then cp $out/check_${pid}_thorough.txt $out/check_$pid.txt; fi
-  fi
-fi
-if [ -z "$hits" ] || { ! grep -q "^VIOLATION" $out/check_$pid.txt && grep -q "no obligation was generated" $out/check_$pid.txt; }; then
-  (cd $V && python3 check.py $pid --tier $tier > $out/check_$pid.txt 2>$out/check_$pid.err; echo "exit=$? (tier $tier, full check; native sweep flagged nothing the restricted runs could decide)" >> $out/check_$pid.txt)
-fi
-tif [ -n "$hits" ]; then
-  (cd $V && VERIF_ONLY="$hits" python3 check.py $pid --tier $tier > $out/check_$pid.txt 2>$out/check_$pid.err; echo "exit=$? (tier $tier, restricted to the harnesses the native sweep flagged: $hits)" >> $out/check_$pid.txt)
-  if ! grep -q "^VIOLATION" $out/check_$pid.txt && [ "$tier" = quick ]; then
-    # the flagged harnesses may belong to the thorough tier only (larger bounds, slow ones)
-    (cd $V && VERIF_ONLY="$hits" python3 check.py $pid --tier thorough > $out/check_${pid}_thorough.txt 2>$out/check_${pid}_thorough.err; echo "exit=$? (tier thorough, restricted to the harnesses the native sweep flagged: $hits)" >> $out/check_${pid}_thorough.txt)
-    if grep -q "^VIOLATION" $out/check_${pid}_thorough.txt; then cp $out/check_${pid}_thorough.txt $out/check_$pid.txt; fi
-  fi
-fi
-if [ -z "$hits" ] || { ! grep -q "^VIOLATION" $out/check_$pid.txt && grep -q "no obligation was generated" $out/check_$pid.txt; }; then
-  (cd $V && python3 check.py $pid --tier $tier > $out/check_$pid.txt 2>$out/check_$pid.err; echo "exit=$? (tier $tier, full check; native sweep flagged nothing the restricted runs could decide)" >> $out/check_$pid.txt)
-fi
-oif [ -n "$hits" ]; then
-  (cd $V && VERIF_ONLY="$hits" python3 check.py $pid --tier $tier > $out/check_$pid.txt 2>$out/check_$pid.err; echo "exit=$? (tier $tier, restricted to the harnesses the native sweep flagged: $hits)" >> $out/check_$pid.txt)
-  if ! grep -q "^VIOLATION" $out/check_$pid.txt && [ "$tier" = quick ]; then
-    # the flagged harnesses may belong to the thorough tier only (larger bounds, slow ones)
-    (cd $V && VERIF_ONLY="$hits" python3 check.py $pid --tier thorough > $out/check_${pid}_thorough.txt 2>$out/check_${pid}_thorough.err; echo "exit=$? (tier thorough, restricted to the harnesses the native sweep flagged: $hits)" >> $out/check_${pid}_thorough.txt)
-    if grep -q "^VIOLATION" $out/check_${pid}_thorough.txt; then cp $out/check_${pid}_thorough.txt $out/check_$pid.txt; fi
-  fi
-fi
-if [ -z "$hits" ] || { ! grep -q "^VIOLATION" $out/check_$pid.txt && grep -q "no obligation was generated" $out/check_$pid.txt; }; then
-  (cd $V && python3 check.py $pid --tier $tier > $out/check_$pid.txt 2>$out/check_$pid.err; echo "exit=$? (tier $tier, full check; native sweep flagged nothing the restricted runs could decide)" >> $out/check_$pid.txt)
-fi
-rif [ -n "$hits" ]; then
-  (cd $V && VERIF_ONLY="$hits" python3 check.py $pid --tier $tier > $out/check_$pid.txt 2>$out/check_$pid.err; echo "exit=$? (tier $tier, restricted to the harnesses the native sweep flagged: $hits)" >> $out/check_$pid.txt)
-  if ! grep -q "^VIOLATION" $out/check_$pid.txt && [ "$tier" = quick ]; then
-    # the flagged harnesses may belong to the thorough tier only (larger bounds, slow ones)
-    (cd $V && VERIF_ONLY="$hits" python3 check.py $pid --tier thorough > $out/check_${pid}_thorough.txt 2>$out/check_${pid}_thorough.err; echo "exit=$? (tier thorough, restricted to the harnesses the native sweep flagged: $hits)" >> $out/check_${pid}_thorough.txt)
-    if grep -q "^VIOLATION" $out/check_${pid}_thorough.txt; then cp $out/check_${pid}_thorough.txt $out/check_$pid.txt; fi
-  fi
-fi
-if [ -z "$hits" ] || { ! grep -q "^VIOLATION" $out/check_$pid.txt && grep -q "no obligation was generated" $out/check_$pid.txt; }; then
-  (cd $V && python3 check.py $pid --tier $tier > $out/check_$pid.txt 2>$out/check_$pid.err; echo "exit=$? (tier $tier, full check; native sweep flagged nothing the restricted runs could decide)" >> $out/check_$pid.txt)
-fi
-yif [ -n "$hits" ]; then
-  (cd $V && VERIF_ONLY="$hits" python3 check.py $pid --tier $tier > $out/check_$pid.txt 2>$out/check_$pid.err; echo "exit=$? (tier $tier, restricted to the harnesses the native sweep flagged: $hits)" >> $out/check_$pid.txt)
-  if ! grep -q "^VIOLATION" $out/check_$pid.txt && [ "$tier" = quick ]; then
-    # the flagged harnesses may belong to the thorough tier only (larger bounds, slow ones)
-    (cd $V && VERIF_ONLY="$hits" python3 check.py $pid --tier thorough > $out/check_${pid}_thorough.txt 2>$out/check_${pid}_thorough.err; echo "exit=$? (tier thorough, restricted to the harnesses the native sweep flagged: $hits)" >> $out/check_${pid}_thorough.txt)
-    if grep -q "^VIOLATION" $out/check_${pid}_thorough.txt; then cp $out/check_${pid}_thorough.txt $out/check_$pid.txt; fi
-  fi
-fi
-if [ -z "$hits" ] || { ! grep -q "^VIOLATION" $out/check_$pid.txt && grep -q "no obligation was generated" $out/check_$pid.txt; }; then
-  (cd $V && python3 check.py $pid --tier $tier > $out/check_$pid.txt 2>$out/check_$pid.err; echo "exit=$? (tier $tier, full check; native sweep flagged nothing the restricted runs could decide)" >> $out/check_$pid.txt)
-fi
- if [ -n "$hits" ]; then
-  (cd $V && VERIF_ONLY="$hits" python3 check.py $pid --tier $tier > $out/check_$pid.txt 2>$out/check_$pid.err; echo "exit=$? (tier $tier, restricted to the harnesses the native sweep flagged: $hits)" >> $out/check_$pid.txt)
-  if ! grep -q "^VIOLATION" $out/check_$pid.txt && [ "$tier" = quick ]; then
-    # the flagged harnesses may belong to the thorough tier only (larger bounds, slow ones)
-    (cd $V && VERIF_ONLY="$hits" python3 check.py $pid --tier thorough > $out/check_${pid}_thorough.txt 2>$out/check_${pid}_thorough.err; echo "exit=$? (tier thorough, restricted to the harnesses the native sweep flagged: $hits)" >> $out/check_${pid}_thorough.txt)
-    if grep -q "^VIOLATION" $out/check_${pid}_thorough.txt; then cp $out/check_${pid}_thorough.txt $out/check_$pid.txt; fi
-  fi
-fi
-if [ -z "$hits" ] || { ! grep -q "^VIOLATION" $out/check_$pid.txt && grep -q "no obligation was generated" $out/check_$pid.txt; }; then
-  (cd $V && python3 check.py $pid --tier $tier > $out/check_$pid.txt 2>$out/check_$pid.err; echo "exit=$? (tier $tier, full check; native sweep flagged nothing the restricted runs could decide)" >> $out/check_$pid.txt)
-fi
-(if [ -n "$hits" ]; then
-  (cd $V && VERIF_ONLY="$hits" python3 check.py $pid --tier $tier > $out/check_$pid.txt 2>$out/check_$pid.err; echo "exit=$? (tier $tier, restricted to the harnesses the native sweep flagged: $hits)" >> $out/check_$pid.txt)
-  if ! grep -q "^VIOLATION" $out/check_$pid.txt && [ "$tier" = quick ]; then
-    # the flagged harnesses may belong to the thorough tier only (larger bounds, slow ones)
-    (cd $V && VERIF_ONLY="$hits" python3 check.py $pid --tier thorough > $out/check_${pid}_thorough.txt 2>$out/check_${pid}_thorough.err; echo "exit=$? (tier thorough, restricted to the harnesses the native sweep flagged: $hits)" >> $out/check_${pid}_thorough.txt)
-    if grep -q "^VIOLATION" $out/check_${pid}_thorough.txt; then cp $out/check_${pid}_thorough.txt $out/check_$pid.txt; fi
-  fi
-fi
-if [ -z "$hits" ] || { ! grep -q "^VIOLATION" $out/check_$pid.txt && grep -q "no obligation was generated" $out/check_$pid.txt; }; then
-  (cd $V && python3 check.py $pid --tier $tier > $out/check_$pid.txt 2>$out/check_$pid.err; echo "exit=$? (tier $tier, full check; native sweep flagged nothing the restricted runs could decide)" >> $out/check_$pid.txt)
-fi
-nif [ -n "$hits" ]; then
-  (cd $V && VERIF_ONLY="$hits" python3 check.py $pid --tier $tier > $out/check_$pid.txt 2>$out/check_$pid.err; echo "exit=$? (tier $tier, restricted to the harnesses the native sweep flagged: $hits)" >> $out/check_$pid.txt)
-  if ! grep -q "^VIOLATION" $out/check_$pid.txt && [ "$tier" = quick ]; then
-    # the flagged harnesses may belong to the thorough tier only (larger bounds, slow ones)
-    (cd $V && VERIF_ONLY="$hits" python3 check.py $pid --tier thorough > $out/check_${pid}_thorough.txt 2>$out/check_${pid}_thorough.err; echo "exit=$? (tier thorough, restricted to the harnesses the native sweep flagged: $hits)" >> $out/check_${pid}_thorough.txt)
-    if grep -q "^VIOLATION" $out/check_${pid}_thorough.txt; then cp $out/check_${pid}_thorough.txt $out/check_$pid.txt; fi
-  fi
-fi
-if [ -z "$hits" ] || { ! grep -q "^VIOLATION" $out/check_$pid.txt && grep -q "no obligation was generated" $out/check_$pid.txt; }; then
-  (cd $V && python3 check.py $pid --tier $tier > $out/check_$pid.txt 2>$out/check_$pid.err; echo "exit=$? (tier $tier, full check; native sweep flagged nothing the restricted runs could decide)" >> $out/check_$pid.txt)
-fi
-eif [ -n "$hits" ]; then
-  (cd $V && VERIF_ONLY="$hits" python3 check.py $pid --tier $tier > $out/check_$pid.txt 2>$out/check_$pid.err; echo "exit=$? (tier $tier, restricted to the harnesses the native sweep flagged: $hits)" >> $out/check_$pid.txt)
-  if ! grep -q "^VIOLATION" $out/check_$pid.txt && [ "$tier" = quick ]; then
-    # the flagged harnesses may belong to the thorough tier only (larger bounds, slow ones)
-    (cd $V && VERIF_ONLY="$hits" python3 check.py $pid --tier thorough > $out/check_${pid}_thorough.txt 2>$out/check_${pid}_thorough.err; echo "exit=$? (tier thorough, restricted to the harnesses the native sweep flagged: $hits)" >> $out/check_${pid}_thorough.txt)
-    if grep -q "^VIOLATION" $out/check_${pid}_thorough.txt; then cp $out/check_${pid}_thorough.txt $out/check_$pid.txt; fi
-  fi
-fi
-if [ -z "$hits" ] || { ! grep -q "^VIOLATION" $out/check_$pid.txt && grep -q "no obligation was generated" $out/check_$pid.txt; }; then
-  (cd $V && python3 check.py $pid --tier $tier > $out/check_$pid.txt 2>$out/check_$pid.err; echo "exit=$? (tier $tier, full check; native sweep flagged nothing the restricted runs could decide)" >> $out/check_$pid.txt)
-fi
-vif [ -n "$hits" ]; then
-  (cd $V && VERIF_ONLY="$hits" python3 check.py $pid --tier $tier > $out/check_$pid.txt 2>$out/check_$pid.err; echo "exit=$? (tier $tier, restricted to the harnesses the native sweep flagged: $hits)" >> $out/check_$pid.txt)
-  if ! grep -q "^VIOLATION" $out/check_$pid.txt && [ "$tier" = quick ]; then
-    # the flagged harnesses may belong to the thorough tier only (larger bounds, slow ones)
-    (cd $V && VERIF_ONLY="$hits" python3 check.py $pid --tier thorough > $out/check_${pid}_thorough.txt 2>$out/check_${pid}_thorough.err; echo "exit=$? (tier thorough, restricted to the harnesses the native sweep flagged: $hits)" >> $out/check_${pid}_thorough.txt)
-    if grep -q "^VIOLATION" $out/check_${pid}_thorough.txt; then cp $out/check_${pid}_thorough.txt $out/check_$pid.txt; fi
-  fi
-fi
-if [ -z "$hits" ] || { ! grep -q "^VIOLATION" $out/check_$pid.txt && grep -q "no obligation was generated" $out/check_$pid.txt; }; then
-  (cd $V && python3 check.py $pid --tier $tier > $out/check_$pid.txt 2>$out/check_$pid.err; echo "exit=$? (tier $tier, full check; native sweep flagged nothing the restricted runs could decide)" >> $out/check_$pid.txt)
-fi
-eif [ -n "$hits" ]; then
-  (cd $V && VERIF_ONLY="$hits" python3 check.py $pid --tier $tier > $out/check_$pid.txt 2>$out/check_$pid.err; echo "exit=$? (tier $tier, restricted to the harnesses the native sweep flagged: $hits)" >> $out/check_$pid.txt)
-  if ! grep -q "^VIOLATION" $out/check_$pid.txt && [ "$tier" = quick ]; then
-    # the flagged harnesses may belong to the thorough tier only (larger bounds, slow ones)
-    (cd $V && VERIF_ONLY="$hits" python3 check.py $pid --tier thorough > $out/check_${pid}_thorough.txt 2>$out/check_${pid}_thorough.err; echo "exit=$? (tier thorough, restricted to the harnesses the native sweep flagged: $hits)" >> $out/check_${pid}_thorough.txt)
-    if grep -q "^VIOLATION" $out/check_${pid}_thorough.txt; then cp $out/check_${pid}_thorough.txt $out/check_$pid.txt; fi
-  fi
-fi
-if [ -z "$hits" ] || { ! grep -q "^VIOLATION" $out/check_$pid.txt && grep -q "no obligation was generated" $out/check_$pid.txt; }; then
-  (cd $V && python3 check.py $pid --tier $tier > $out/check_$pid.txt 2>$out/check_$pid.err; echo "exit=$? (tier $tier, full check; native sweep flagged nothing the restricted runs could decide)" >> $out/check_$pid.txt)
-fi
-rif [ -n "$hits" ]; then
-  (cd $V && VERIF_ONLY="$hits" python3 check.py $pid --tier $tier > $out/check_$pid.txt 2>$out/check_$pid.err; echo "exit=$? (tier $tier, restricted to the harnesses the native sweep flagged: $hits)" >> $out/check_$pid.txt)
-  if ! grep -q "^VIOLATION" $out/check_$pid.txt && [ "$tier" = quick ]; then
-    # the flagged harnesses may belong to the thorough tier only (larger bounds, slow ones)
-    (cd $V && VERIF_ONLY="$hits" python3 check.py $pid --tier thorough > $out/check_${pid}_thorough.txt 2>$out/check_${pid}_thorough.err; echo "exit=$? (tier thorough, restricted to the harnesses the native sweep flagged: $hits)" >> $out/check_${pid}_thorough.txt)
-    if grep -q "^VIOLATION" $out/check_${pid}_thorough.txt; then cp $out/check_${pid}_thorough.txt $out/check_$pid.txt; fi
-  fi
-fi
-if [ -z "$hits" ] || { ! grep -q "^VIOLATION" $out/check_$pid.txt && grep -q "no obligation was generated" $out/check_$pid.txt; }; then
-  (cd $V && python3 check.py $pid --tier $tier > $out/check_$pid.txt 2>$out/check_$pid.err; echo "exit=$? (tier $tier, full check; native sweep flagged nothing the restricted runs could decide)" >> $out/check_$pid.txt)
-fi
- if [ -n "$hits" ]; then
-  (cd $V && VERIF_ONLY="$hits" python3 check.py $pid --tier $tier > $out/check_$pid.txt 2>$out/check_$pid.err; echo "exit=$? (tier $tier, restricted to the harnesses the native sweep flagged: $hits)" >> $out/check_$pid.txt)
-  if ! grep -q "^VIOLATION" $out/check_$pid.txt && [ "$tier" = quick ]; then
-    # the flagged harnesses may belong to the thorough tier only (larger bounds, slow ones)
-    (cd $V && VERIF_ONLY="$hits" python3 check.py $pid --tier thorough > $out/check_${pid}_thorough.txt 2>$out/check_${pid}_thorough.err; echo "exit=$? (tier thorough, restricted to the harnesses the native sweep flagged: $hits)" >> $out/check_${pid}_thorough.txt)
-    if grep -q "^VIOLATION" $out/check_${pid}_thorough.txt; then cp $out/check_${pid}_thorough.txt $out/check_$pid.txt; fi
-  fi
-fi
-if [ -z "$hits" ] || { ! grep -q "^VIOLATION" $out/check_$pid.txt && grep -q "no obligation was generated" $out/check_$pid.txt; }; then
-  (cd $V && python3 check.py $pid --tier $tier > $out/check_$pid.txt 2>$out/check_$pid.err; echo "exit=$? (tier $tier, full check; native sweep flagged nothing the restricted runs could decide)" >> $out/check_$pid.txt)
-fi
-iif [ -n "$hits" ]; then
-  (cd $V && VERIF_ONLY="$hits" python3 check.py $pid --tier $tier > $out/check_$pid.txt 2>$out/check_$pid.err; echo "exit=$? (tier $tier, restricted to the harnesses the native sweep flagged: $hits)" >> $out/check_$pid.txt)
-  if ! grep -q "^VIOLATION" $out/check_$pid.txt && [ "$tier" = quick ]; then
-    # the flagged harnesses may belong to the thorough tier only (larger bounds, slow ones)
-    (cd $V && VERIF_ONLY="$hits" python3 check.py $pid --tier thorough > $out/check_${pid}_thorough.txt 2>$out/check_${pid}_thorough.err; echo "exit=$? (tier thorough, restricted to the harnesses the native sweep flagged: $hits)" >> $out/check_${pid}_thorough.txt)
-    if grep -q "^VIOLATION" $out/check_${pid}_thorough.txt; then cp $out/check_${pid}_thorough.txt $out/check_$pid.txt; fi
-  fi
-fi
-if [ -z "$hits" ] || { ! grep -q "^VIOLATION" $out/check_$pid.txt && grep -q "no obligation was generated" $out/check_$pid.txt; }; then
-  (cd $V && python3 check.py $pid --tier $tier > $out/check_$pid.txt 2>$out/check_$pid.err; echo "exit=$? (tier $tier, full check; native sweep flagged nothing the restricted runs could decide)" >> $out/check_$pid.txt)
-fi
-nif [ -n "$hits" ]; then
-  (cd $V && VERIF_ONLY="$hits" python3 check.py $pid --tier $tier > $out/check_$pid.txt 2>$out/check_$pid.err; echo "exit=$? (tier $tier, restricted to the harnesses the native sweep flagged: $hits)" >> $out/check_$pid.txt)
-  if ! grep -q "^VIOLATION" $out/check_$pid.txt && [ "$tier" = quick ]; then
-    # the flagged harnesses may belong to the thorough tier only (larger bounds, slow ones)
-    (cd $V && VERIF_ONLY="$hits" python3 check.py $pid --tier thorough > $out/check_${pid}_thorough.txt 2>$out/check_${pid}_thorough.err; echo "exit=$? (tier thorough, restricted to the harnesses the native sweep flagged: $hits)" >> $out/check_${pid}_thorough.txt)
-    if grep -q "^VIOLATION" $out/check_${pid}_thorough.txt; then cp $out/check_${pid}_thorough.txt $out/check_$pid.txt; fi
-  fi
-fi
-if [ -z "$hits" ] || { ! grep -q "^VIOLATION" $out/check_$pid.txt && grep -q "no obligation was generated" $out/check_$pid.txt; }; then
-  (cd $V && python3 check.py $pid --tier $tier > $out/check_$pid.txt 2>$out/check_$pid.err; echo "exit=$? (tier $tier, full check; native sweep flagged nothing the restricted runs could decide)" >> $out/check_$pid.txt)
-fi
- if [ -n "$hits" ]; then
-  (cd $V && VERIF_ONLY="$hits" python3 check.py $pid --tier $tier > $out/check_$pid.txt 2>$out/check_$pid.err; echo "exit=$? (tier $tier, restricted to the harnesses the native sweep flagged: $hits)" >> $out/check_$pid.txt)
-  if ! grep -q "^VIOLATION" $out/check_$pid.txt && [ "$tier" = quick ]; then
-    # the flagged harnesses may belong to the thorough tier only (larger bounds, slow ones)
-    (cd $V && VERIF_ONLY="$hits" python3 check.py $pid --tier thorough > $out/check_${pid}_thorough.txt 2>$out/check_${pid}_thorough.err; echo "exit=$? (tier thorough, restricted to the harnesses the native sweep flagged: $hits)" >> $out/check_${pid}_thorough.txt)
-    if grep -q "^VIOLATION" $out/check_${pid}_thorough.txt; then cp $out/check_${pid}_thorough.txt $out/check_$pid.txt; fi
-  fi
-fi
-if [ -z "$hits" ] || { ! grep -q "^VIOLATION" $out/check_$pid.txt && grep -q "no obligation was generated" $out/check_$pid.txt; }; then
-  (cd $V && python3 check.py $pid --tier $tier > $out/check_$pid.txt 2>$out/check_$pid.err; echo "exit=$? (tier $tier, full check; native sweep flagged nothing the restricted runs could decide)" >> $out/check_$pid.txt)
-fi
-/if [ -n "$hits" ]; then
-  (cd $V && VERIF_ONLY="$hits" python3 check.py $pid --tier $tier > $out/check_$pid.txt 2>$out/check_$pid.err; echo "exit=$? (tier $tier, restricted to the harnesses the native sweep flagged: $hits)" >> $out/check_$pid.txt)
-  if ! grep -q "^VIOLATION" $out/check_$pid.txt && [ "$tier" = quick ]; then
-    # the flagged harnesses may belong to the thorough tier only (larger bounds, slow ones)
-    (cd $V && VERIF_ONLY="$hits" python3 check.py $pid --tier thorough > $out/check_${pid}_thorough.txt 2>$out/check_${pid}_thorough.err; echo "exit=$? (tier thorough, restricted to the harnesses the native sweep flagged: $hits)" >> $out/check_${pid}_thorough.txt)
-    if grep -q "^VIOLATION" $out/check_${pid}_thorough.txt; then cp $out/check_${pid}_thorough.txt $out/check_$pid.txt; fi
-  fi
-fi
-if [ -z "$hits" ] || { ! grep -q "^VIOLATION" $out/check_$pid.txt && grep -q "no obligation was generated" $out/check_$pid.txt; }; then
-  (cd $V && python3 check.py $pid --tier $tier > $out/check_$pid.txt 2>$out/check_$pid.err; echo "exit=$? (tier $tier, full check; native sweep flagged nothing the restricted runs could decide)" >> $out/check_$pid.txt)
-fi
-rif [ -n "$hits" ]; then
-  (cd $V && VERIF_ONLY="$hits" python3 check.py $pid --tier $tier > $out/check_$pid.txt 2>$out/check_$pid.err; echo "exit=$? (tier $tier, restricted to the harnesses the native sweep flagged: $hits)" >> $out/check_$pid.txt)
-  if ! grep -q "^VIOLATION" $out/check_$pid.txt && [ "$tier" = quick ]; then
-    # the flagged harnesses may belong to the thorough tier only (larger bounds, slow ones)
-    (cd $V && VERIF_ONLY="$hits" python3 check.py $pid --tier thorough > $out/check_${pid}_thorough.txt 2>$out/check_${pid}_thorough.err; echo "exit=$? (tier thorough, restricted to the harnesses the native sweep flagged: $hits)" >> $out/check_${pid}_thorough.txt)
-    if grep -q "^VIOLATION" $out/check_${pid}_thorough.txt; then cp $out/check_${pid}_thorough.txt $out/check_$pid.txt; fi
-  fi
-fi
-if [ -z "$hits" ] || { ! grep -q "^VIOLATION" $out/check_$pid.txt && grep -q "no obligation was generated" $out/check_$pid.txt; }; then
-  (cd $V && python3 check.py $pid --tier $tier > $out/check_$pid.txt 2>$out/check_$pid.err; echo "exit=$? (tier $tier, full check; native sweep flagged nothing the restricted runs could decide)" >> $out/check_$pid.txt)
-fi
-eif [ -n "$hits" ]; then
-  (cd $V && VERIF_ONLY="$hits" python3 check.py $pid --tier $tier > $out/check_$pid.txt 2>$out/check_$pid.err; echo "exit=$? (tier $tier, restricted to the harnesses the native sweep flagged: $hits)" >> $out/check_$pid.txt)
-  if ! grep -q "^VIOLATION" $out/check_$pid.txt && [ "$tier" = quick ]; then
-    # the flagged harnesses may belong to the thorough tier only (larger bounds, slow ones)
-    (cd $V && VERIF_ONLY="$hits" python3 check.py $pid --tier thorough > $out/check_${pid}_thorough.txt 2>$out/check_${pid}_thorough.err; echo "exit=$? (tier thorough, restricted to the harnesses the native sweep flagged: $hits)" >> $out/check_${pid}_thorough.txt)
-    if grep -q "^VIOLATION" $out/check_${pid}_thorough.txt; then cp $out/check_${pid}_thorough.txt $out/check_$pid.txt; fi
-  fi
-fi
-if [ -z "$hits" ] || { ! grep -q "^VIOLATION" $out/check_$pid.txt && grep -q "no obligation was generated" $out/check_$pid.txt; }; then
-  (cd $V && python3 check.py $pid --tier $tier > $out/check_$pid.txt 2>$out/check_$pid.err; echo "exit=$? (tier $tier, full check; native sweep flagged nothing the restricted runs could decide)" >> $out/check_$pid.txt)
-fi
-pif [ -n "$hits" ]; then
-  (cd $V && VERIF_ONLY="$hits" python3 check.py $pid --tier $tier > $out/check_$pid.txt 2>$out/check_$pid.err; echo "exit=$? (tier $tier, restricted to the harnesses the native sweep flagged: $hits)" >> $out/check_$pid.txt)
-  if ! grep -q "^VIOLATION" $out/check_$pid.txt && [ "$tier" = quick ]; then
-    # the flagged harnesses may belong to the thorough tier only (larger bounds, slow ones)
-    (cd $V && VERIF_ONLY="$hits" python3 check.py $pid --tier thorough > $out/check_${pid}_thorough.txt 2>$out/check_${pid}_thorough.err; echo "exit=$? (tier thorough, restricted to the harnesses the native sweep flagged: $hits)" >> $out/check_${pid}_thorough.txt)
-    if grep -q "^VIOLATION" $out/check_${pid}_thorough.txt; then cp $out/check_${pid}_thorough.txt $out/check_$pid.txt; fi
-  fi
-fi
-if [ -z "$hits" ] || { ! grep -q "^VIOLATION" $out/check_$pid.txt && grep -q "no obligation was generated" $out/check_$pid.txt; }; then
-  (cd $V && python3 check.py $pid --tier $tier > $out/check_$pid.txt 2>$out/check_$pid.err; echo "exit=$? (tier $tier, full check; native sweep flagged nothing the restricted runs could decide)" >> $out/check_$pid.txt)
-fi
-oif [ -n "$hits" ]; then
-  (cd $V && VERIF_ONLY="$hits" python3 check.py $pid --tier $tier > $out/check_$pid.txt 2>$out/check_$pid.err; echo "exit=$? (tier $tier, restricted to the harnesses the native sweep flagged: $hits)" >> $out/check_$pid.txt)
-  if ! grep -q "^VIOLATION" $out/check_$pid.txt && [ "$tier" = quick ]; then
-    # the flagged harnesses may belong to the thorough tier only (larger bounds, slow ones)
-    (cd $V && VERIF_ONLY="$hits" python3 check.py $pid --tier thorough > $out/check_${pid}_thorough.txt 2>$out/check_${pid}_thorough.err; echo "exit=$? (tier thorough, restricted to the harnesses the native sweep flagged: $hits)" >> $out/check_${pid}_thorough.txt)
-    if grep -q "^VIOLATION" $out/check_${pid}_thorough.txt; then cp $out/check_${pid}_thorough.txt $out/check_$pid.txt; fi
-  fi
-fi
-if [ -z "$hits" ] || { ! grep -q "^VIOLATION" $out/check_$pid.txt && grep -q "no obligation was generated" $out/check_$pid.txt; }; then
-  (cd $V && python3 check.py $pid --tier $tier > $out/check_$pid.txt 2>$out/check_$pid.err; echo "exit=$? (tier $tier, full check; native sweep flagged nothing the restricted runs could decide)" >> $out/check_$pid.txt)
-fi
-)if [ -n "$hits" ]; then
-  (cd $V && VERIF_ONLY="$hits" python3 check.py $pid --tier $tier > $out/check_$pid.txt 2>$out/check_$pid.err; echo "exit=$? (tier $tier, restricted to the harnesses the native sweep flagged: $hits)" >> $out/check_$pid.txt)
-  if ! grep -q "^VIOLATION" $out/check_$pid.txt && [ "$tier" = quick ]; then
-    # the flagged harnesses may belong to the thorough tier only (larger bounds, slow ones)
-    (cd $V && VERIF_ONLY="$hits" python3 check.py $pid --tier thorough > $out/check_${pid}_thorough.txt 2>$out/check_${pid}_thorough.err; echo "exit=$? (tier thorough, restricted to the harnesses the native sweep flagged: $hits)" >> $out/check_${pid}_thorough.txt)
-    if grep -q "^VIOLATION" $out/check_${pid}_thorough.txt; then cp $out/check_${pid}_thorough.txt $out/check_$pid.txt; fi
-  fi
-fi
-if [ -z "$hits" ] || { ! grep -q "^VIOLATION" $out/check_$pid.txt && grep -q "no obligation was generated" $out/check_$pid.txt; }; then
-  (cd $V && python3 check.py $pid --tier $tier > $out/check_$pid.txt 2>$out/check_$pid.err; echo "exit=$? (tier $tier, full check; native sweep flagged nothing the restricted runs could decide)" >> $out/check_$pid.txt)
-fi
-.if [ -n "$hits" ]; then
-  (cd $V && VERIF_ONLY="$hits" python3 check.py $pid --tier $tier > $out/check_$pid.txt 2>$out/check_$pid.err; echo "exit=$? (tier $tier, restricted to the harnesses the native sweep flagged: $hits)" >> $out/check_$pid.txt)
-  if ! grep -q "^VIOLATION" $out/check_$pid.txt && [ "$tier" = quick ]; then
-    # the flagged harnesses may belong to the thorough tier only (larger bounds, slow ones)
-    (cd $V && VERIF_ONLY="$hits" python3 check.py $pid --tier thorough > $out/check_${pid}_thorough.txt 2>$out/check_${pid}_thorough.err; echo "exit=$? (tier thorough, restricted to the harnesses the native sweep flagged: $hits)" >> $out/check_${pid}_thorough.txt)
-    if grep -q "^VIOLATION" $out/check_${pid}_thorough.txt; then cp $out/check_${pid}_thorough.txt $out/check_$pid.txt; fi
-  fi
-fi
-if [ -z "$hits" ] || { ! grep -q "^VIOLATION" $out/check_$pid.txt && grep -q "no obligation was generated" $out/check_$pid.txt; }; then
-  (cd $V && python3 check.py $pid --tier $tier > $out/check_$pid.txt 2>$out/check_$pid.err; echo "exit=$? (tier $tier, full check; native sweep flagged nothing the restricted runs could decide)" >> $out/check_$pid.txt)
-fi
- if [ -n "$hits" ]; then
-  (cd $V && VERIF_ONLY="$hits" python3 check.py $pid --tier $tier > $out/check_$pid.txt 2>$out/check_$pid.err; echo "exit=$? (tier $tier, restricted to the harnesses the native sweep flagged: $hits)" >> $out/check_$pid.txt)
-  if ! grep -q "^VIOLATION" $out/check_$pid.txt && [ "$tier" = quick ]; then
-    # the flagged harnesses may belong to the thorough tier only (larger bounds, slow ones)
-    (cd $V && VERIF_ONLY="$hits" python3 check.py $pid --tier thorough > $out/check_${pid}_thorough.txt 2>$out/check_${pid}_thorough.err; echo "exit=$? (tier thorough, restricted to the harnesses the native sweep flagged: $hits)" >> $out/check_${pid}_thorough.txt)
-    if grep -q "^VIOLATION" $out/check_${pid}_thorough.txt; then cp $out/check_${pid}_thorough.txt $out/check_$pid.txt; fi
-  fi
-fi
-if [ -z "$hits" ] || { ! grep -q "^VIOLATION" $out/check_$pid.txt && grep -q "no obligation was generated" $out/check_$pid.txt; }; then
-  (cd $V && python3 check.py $pid --tier $tier > $out/check_$pid.txt 2>$out/check_$pid.err; echo "exit=$? (tier $tier, full check; native sweep flagged nothing the restricted runs could decide)" >> $out/check_$pid.txt)
-fi
-Sif [ -n "$hits" ]; then
-  (cd $V && VERIF_ONLY="$hits" python3 check.py $pid --tier $tier > $out/check_$pid.txt 2>$out/check_$pid.err; echo "exit=$? (tier $tier, restricted to the harnesses the native sweep flagged: $hits)" >> $out/check_$pid.txt)
-  if ! grep -q "^VIOLATION" $out/check_$pid.txt && [ "$tier" = quick ]; then
-    # the flagged harnesses may belong to the thorough tier only (larger bounds, slow ones)
-    (cd $V && VERIF_ONLY="$hits" python3 check.py $pid --tier thorough > $out/check_${pid}_thorough.txt 2>$out/check_${pid}_thorough.err; echo "exit=$? (tier thorough, restricted to the harnesses the native sweep flagged: $hits)" >> $out/check_${pid}_thorough.txt)
-    if grep -q "^VIOLATION" $out/check_${pid}_thorough.txt; then cp $out/check_${pid}_thorough.txt $out/check_$pid.txt; fi
-  fi
-fi
-if [ -z "$hits" ] || { ! grep -q "^VIOLATION" $out/check_$pid.txt && grep -q "no obligation was generated" $out/check_$pid.txt; }; then
-  (cd $V && python3 check.py $pid --tier $tier > $out/check_$pid.txt 2>$out/check_$pid.err; echo "exit=$? (tier $tier, full check; native sweep flagged nothing the restricted runs could decide)" >> $out/check_$pid.txt)
-fi
-tif [ -n "$hits" ]; then
-  (cd $V && VERIF_ONLY="$hits" python3 check.py $pid --tier $tier > $out/check_$pid.txt 2>$out/check_$pid.err; echo "exit=$? (tier $tier, restricted to the harnesses the native sweep flagged: $hits)" >> $out/check_$pid.txt)
-  if ! grep -q "^VIOLATION" $out/check_$pid.txt && [ "$tier" = quick ]; then
-    # the flagged harnesses may belong to the thorough tier only (larger bounds, slow ones)
-    (cd $V && VERIF_ONLY="$hits" python3 check.py $pid --tier thorough > $out/check_${pid}_thorough.txt 2>$out/check_${pid}_thorough.err; echo "exit=$? (tier thorough, restricted to the harnesses the native sweep flagged: $hits)" >> $out/check_${pid}_thorough.txt)
-    if grep -q "^VIOLATION" $out/check_${pid}_thorough.txt; then cp $out/check_${pid}_thorough.txt $out/check_$pid.txt; fi
-  fi
-fi
-if [ -z "$hits" ] || { ! grep -q "^VIOLATION" $out/check_$pid.txt && grep -q "no obligation was generated" $out/check_$pid.txt; }; then
-  (cd $V && python3 check.py $pid --tier $tier > $out/check_$pid.txt 2>$out/check_$pid.err; echo "exit=$? (tier $tier, full check; native sweep flagged nothing the restricted runs could decide)" >> $out/check_$pid.txt)
-fi
-eif [ -n "$hits" ]; then
-  (cd $V && VERIF_ONLY="$hits" python3 check.py $pid --tier $tier > $out/check_$pid.txt 2>$out/check_$pid.err; echo "exit=$? (tier $tier, restricted to the harnesses the native sweep flagged: $hits)" >> $out/check_$pid.txt)
-  if ! grep -q "^VIOLATION" $out/check_$pid.txt && [ "$tier" = quick ]; then
-    # the flagged harnesses may belong to the thorough tier only (larger bounds, slow ones)
-    (cd $V && VERIF_ONLY="$hits" python3 check.py $pid --tier thorough > $out/check_${pid}_thorough.txt 2>$out/check_${pid}_thorough.err; echo "exit=$? (tier thorough, restricted to the harnesses the native sweep flagged: $hits)" >> $out/check_${pid}_thorough.txt)
-    if grep -q "^VIOLATION" $out/check_${pid}_thorough.txt; then cp $out/check_${pid}_thorough.txt $out/check_$pid.txt; fi
-  fi
-fi
-if [ -z "$hits" ] || { ! grep -q "^VIOLATION" $out/check_$pid.txt && grep -q "no obligation was generated" $out/check_$pid.txt; }; then
-  (cd $V && python3 check.py $pid --tier $tier > $out/check_$pid.txt 2>$out/check_$pid.err; echo "exit=$? (tier $tier, full check; native sweep flagged nothing the restricted runs could decide)" >> $out/check_$pid.txt)
-fi
-pif [ -n "$hits" ]; then
-  (cd $V && VERIF_ONLY="$hits" python3 check.py $pid --tier $tier > $out/check_$pid.txt 2>$out/check_$pid.err; echo "exit=$? (tier $tier, restricted to the harnesses the native sweep flagged: $hits)" >> $out/check_$pid.txt)
-  if ! grep -q "^VIOLATION" $out/check_$pid.txt && [ "$tier" = quick ]; then
-    # the flagged harnesses may belong to the thorough tier only (larger bounds, slow ones)
-    (cd $V && VERIF_ONLY="$hits" python3 check.py $pid --tier thorough > $out/check_${pid}_thorough.txt 2>$out/check_${pid}_thorough.err; echo "exit=$? (tier thorough, restricted to the harnesses the native sweep flagged: $hits)" >> $out/check_${pid}_thorough.txt)
-    if grep -q "^VIOLATION" $out/check_${pid}_thorough.txt; then cp $out/check_${pid}_thorough.txt $out/check_$pid.txt; fi
-  fi
-fi
-if [ -z "$hits" ] || { ! grep -q "^VIOLATION" $out/check_$pid.txt && grep -q "no obligation was generated" $out/check_$pid.txt; }; then
-  (cd $V && python3 check.py $pid --tier $tier > $out/check_$pid.txt 2>$out/check_$pid.err; echo "exit=$? (tier $tier, full check; native sweep flagged nothing the restricted runs could decide)" >> $out/check_$pid.txt)
-fi
- if [ -n "$hits" ]; then
-  (cd $V && VERIF_ONLY="$hits" python3 check.py $pid --tier $tier > $out/check_$pid.txt 2>$out/check_$pid.err; echo "exit=$? (tier $tier, restricted to the harnesses the native sweep flagged: $hits)" >> $out/check_$pid.txt)
-  if ! grep -q "^VIOLATION" $out/check_$pid.txt && [ "$tier" = quick ]; then
-    # the flagged harnesses may belong to the thorough tier only (larger bounds, slow ones)
-    (cd $V && VERIF_ONLY="$hits" python3 check.py $pid --tier thorough > $out/check_${pid}_thorough.txt 2>$out/check_${pid}_thorough.err; echo "exit=$? (tier thorough, restricted to the harnesses the native sweep flagged: $hits)" >> $out/check_${pid}_thorough.txt)
-    if grep -q "^VIOLATION" $out/check_${pid}_thorough.txt; then cp $out/check_${pid}_thorough.txt $out/check_$pid.txt; fi
-  fi
-fi
-if [ -z "$hits" ] || { ! grep -q "^VIOLATION" $out/check_$pid.txt && grep -q "no obligation was generated" $out/check_$pid.txt; }; then
-  (cd $V && python3 check.py $pid --tier $tier > $out/check_$pid.txt 2>$out/check_$pid.err; echo "exit=$? (tier $tier, full check; native sweep flagged nothing the restricted runs could decide)" >> $out/check_$pid.txt)
-fi
-1if [ -n "$hits" ]; then
-  (cd $V && VERIF_ONLY="$hits" python3 check.py $pid --tier $tier > $out/check_$pid.txt 2>$out/check_$pid.err; echo "exit=$? (tier $tier, restricted to the harnesses the native sweep flagged: $hits)" >> $out/check_$pid.txt)
-  if ! grep -q "^VIOLATION" $out/check_$pid.txt && [ "$tier" = quick ]; then
-    # the flagged harnesses may belong to the thorough tier only (larger bounds, slow ones)
-    (cd $V && VERIF_ONLY="$hits" python3 check.py $pid --tier thorough > $out/check_${pid}_thorough.txt 2>$out/check_${pid}_thorough.err; echo "exit=$? (tier thorough, restricted to the harnesses the native sweep flagged: $hits)" >> $out/check_${pid}_thorough.txt)
-    if grep -q "^VIOLATION" $out/check_${pid}_thorough.txt; then cp $out/check_${pid}_thorough.txt $out/check_$pid.txt; fi
-  fi
-fi
-if [ -z "$hits" ] || { ! grep -q "^VIOLATION" $out/check_$pid.txt && grep -q "no obligation was generated" $out/check_$pid.txt; }; then
-  (cd $V && python3 check.py $pid --tier $tier > $out/check_$pid.txt 2>$out/check_$pid.err; echo "exit=$? (tier $tier, full check; native sweep flagged nothing the restricted runs could decide)" >> $out/check_$pid.txt)
-fi
-:if [ -n "$hits" ]; then
-  (cd $V && VERIF_ONLY="$hits" python3 check.py $pid --tier $tier > $out/check_$pid.txt 2>$out/check_$pid.err; echo "exit=$? (tier $tier, restricted to the harnesses the native sweep flagged: $hits)" >> $out/check_$pid.txt)
-  if ! grep -q "^VIOLATION" $out/check_$pid.txt && [ "$tier" = quick ]; then
-    # the flagged harnesses may belong to the thorough tier only (larger bounds, slow ones)
-    (cd $V && VERIF_ONLY="$hits" python3 check.py $pid --tier thorough > $out/check_${pid}_thorough.txt 2>$out/check_${pid}_thorough.err; echo "exit=$? (tier thorough, restricted to the harnesses the native sweep flagged: $hits)" >> $out/check_${pid}_thorough.txt)
-    if grep -q "^VIOLATION" $out/check_${pid}_thorough.txt; then cp $out/check_${pid}_thorough.txt $out/check_$pid.txt; fi
-  fi
-fi
-if [ -z "$hits" ] || { ! grep -q "^VIOLATION" $out/check_$pid.txt && grep -q "no obligation was generated" $out/check_$pid.txt; }; then
-  (cd $V && python3 check.py $pid --tier $tier > $out/check_$pid.txt 2>$out/check_$pid.err; echo "exit=$? (tier $tier, full check; native sweep flagged nothing the restricted runs could decide)" >> $out/check_$pid.txt)
-fi
- if [ -n "$hits" ]; then
-  (cd $V && VERIF_ONLY="$hits" python3 check.py $pid --tier $tier > $out/check_$pid.txt 2>$out/check_$pid.err; echo "exit=$? (tier $tier, restricted to the harnesses the native sweep flagged: $hits)" >> $out/check_$pid.txt)
-  if ! grep -q "^VIOLATION" $out/check_$pid.txt && [ "$tier" = quick ]; then
-    # the flagged harnesses may belong to the thorough tier only (larger bounds, slow ones)
-    (cd $V && VERIF_ONLY="$hits" python3 check.py $pid --tier thorough > $out/check_${pid}_thorough.txt 2>$out/check_${pid}_thorough.err; echo "exit=$? (tier thorough, restricted to the harnesses the native sweep flagged: $hits)" >> $out/check_${pid}_thorough.txt)
-    if grep -q "^VIOLATION" $out/check_${pid}_thorough.txt; then cp $out/check_${pid}_thorough.txt $out/check_$pid.txt; fi
-  fi
-fi
-if [ -z "$hits" ] || { ! grep -q "^VIOLATION" $out/check_$pid.txt && grep -q "no obligation was generated" $out/check_$pid.txt; }; then
-  (cd $V && python3 check.py $pid --tier $tier > $out/check_$pid.txt 2>$out/check_$pid.err; echo "exit=$? (tier $tier, full check; native sweep flagged nothing the restricted runs could decide)" >> $out/check_$pid.txt)
-fi
-nif [ -n "$hits" ]; then
-  (cd $V && VERIF_ONLY="$hits" python3 check.py $pid --tier $tier > $out/check_$pid.txt 2>$out/check_$pid.err; echo "exit=$? (tier $tier, restricted to the harnesses the native sweep flagged: $hits)" >> $out/check_$pid.txt)
-  if ! grep -q "^VIOLATION" $out/check_$pid.txt && [ "$tier" = quick ]; then
-    # the flagged harnesses may belong to the thorough tier only (larger bounds, slow ones)
-    (cd $V && VERIF_ONLY="$hits" python3 check.py $pid --tier thorough > $out/check_${pid}_thorough.txt 2>$out/check_${pid}_thorough.err; echo "exit=$? (tier thorough, restricted to the harnesses the native sweep flagged: $hits)" >> $out/check_${pid}_thorough.txt)
-    if grep -q "^VIOLATION" $out/check_${pid}_thorough.txt; then cp $out/check_${pid}_thorough.txt $out/check_$pid.txt; fi
-  fi
-fi
-if [ -z "$hits" ] || { ! grep -q "^VIOLATION" $out/check_$pid.txt && grep -q "no obligation was generated" $out/check_$pid.txt; }; then
-  (cd $V && python3 check.py $pid --tier $tier > $out/check_$pid.txt 2>$out/check_$pid.err; echo "exit=$? (tier $tier, full check; native sweep flagged nothing the restricted runs could decide)" >> $out/check_$pid.txt)
-fi
-aif [ -n "$hits" ]; then
-  (cd $V && VERIF_ONLY="$hits" python3 check.py $pid --tier $tier > $out/check_$pid.txt 2>$out/check_$pid.err; echo "exit=$? (tier $tier, restricted to the harnesses the native sweep flagged: $hits)" >> $out/check_$pid.txt)
-  if ! grep -q "^VIOLATION" $out/check_$pid.txt && [ "$tier" = quick ]; then
-    # the flagged harnesses may belong to the thorough tier only (larger bounds, slow ones)
-    (cd $V && VERIF_ONLY="$hits" python3 check.py $pid --tier thorough > $out/check_${pid}_thorough.txt 2>$out/check_${pid}_thorough.err; echo "exit=$? (tier thorough, restricted to the harnesses the native sweep flagged: $hits)" >> $out/check_${pid}_thorough.txt)
-    if grep -q "^VIOLATION" $out/check_${pid}_thorough.txt; then cp $out/check_${pid}_thorough.txt $out/check_$pid.txt; fi
-  fi
-fi
-if [ -z "$hits" ] || { ! grep -q "^VIOLATION" $out/check_$pid.txt && grep -q "no obligation was generated" $out/check_$pid.txt; }; then
-  (cd $V && python3 check.py $pid --tier $tier > $out/check_$pid.txt 2>$out/check_$pid.err; echo "exit=$? (tier $tier, full check; native sweep flagged nothing the restricted runs could decide)" >> $out/check_$pid.txt)
-fi
-tif [ -n "$hits" ]; then
-  (cd $V && VERIF_ONLY="$hits" python3 check.py $pid --tier $tier > $out/check_$pid.txt 2>$out/check_$pid.err; echo "exit=$? (tier $tier, restricted to the harnesses the native sweep flagged: $hits)" >> $out/check_$pid.txt)
-  if ! grep -q "^VIOLATION" $out/check_$pid.txt && [ "$tier" = quick ]; then
-    # the flagged harnesses may belong to the thorough tier only (larger bounds, slow ones)
-    (cd $V && VERIF_ONLY="$hits" python3 check.py $pid --tier thorough > $out/check_${pid}_thorough.txt 2>$out/check_${pid}_thorough.err; echo "exit=$? (tier thorough, restricted to the harnesses the native sweep flagged: $hits)" >> $out/check_${pid}_thorough.txt)
-    if grep -q "^VIOLATION" $out/check_${pid}_thorough.txt; then cp $out/check_${pid}_thorough.txt $out/check_$pid.txt; fi
-  fi
-fi
-if [ -z "$hits" ] || { ! grep -q "^VIOLATION" $out/check_$pid.txt && grep -q "no obligation was generated" $out/check_$pid.txt; }; then
-  (cd $V && python3 check.py $pid --tier $tier > $out/check_$pid.txt 2>$out/check_$pid.err; echo "exit=$? (tier $tier, full check; native sweep flagged nothing the restricted runs could decide)" >> $out/check_$pid.txt)
-fi
-iif [ -n "$hits" ]; then
-  (cd $V && VERIF_ONLY="$hits" python3 check.py $pid --tier $tier > $out/check_$pid.txt 2>$out/check_$pid.err; echo "exit=$? (tier $tier, restricted to the harnesses the native sweep flagged: $hits)" >> $out/check_$pid.txt)
-  if ! grep -q "^VIOLATION" $out/check_$pid.txt && [ "$tier" = quick ]; then
-    # the flagged harnesses may belong to the thorough tier only (larger bounds, slow ones)
-    (cd $V && VERIF_ONLY="$hits" python3 check.py $pid --tier thorough > $out/check_${pid}_thorough.txt 2>$out/check_${pid}_thorough.err; echo "exit=$? (tier thorough, restricted to the harnesses the native sweep flagged: $hits)" >> $out/check_${pid}_thorough.txt)
-    if grep -q "^VIOLATION" $out/check_${pid}_thorough.txt; then cp $out/check_${pid}_thorough.txt $out/check_$pid.txt; fi
-  fi
-fi
-if [ -z "$hits" ] || { ! grep -q "^VIOLATION" $out/check_$pid.txt && grep -q "no obligation was generated" $out/check_$pid.txt; }; then
-  (cd $V && python3 check.py $pid --tier $tier > $out/check_$pid.txt 2>$out/check_$pid.err; echo "exit=$? (tier $tier, full check; native sweep flagged nothing the restricted runs could decide)" >> $out/check_$pid.txt)
-fi
-vif [ -n "$hits" ]; then
-  (cd $V && VERIF_ONLY="$hits" python3 check.py $pid --tier $tier > $out/check_$pid.txt 2>$out/check_$pid.err; echo "exit=$? (tier $tier, restricted to the harnesses the native sweep flagged: $hits)" >> $out/check_$pid.txt)
-  if ! grep -q "^VIOLATION" $out/check_$pid.txt && [ "$tier" = quick ]; then
-    # the flagged harnesses may belong to the thorough tier only (larger bounds, slow ones)
-    (cd $V && VERIF_ONLY="$hits" python3 check.py $pid --tier thorough > $out/check_${pid}_thorough.txt 2>$out/check_${pid}_thorough.err; echo "exit=$? (tier thorough, restricted to the harnesses the native sweep flagged: $hits)" >> $out/check_${pid}_thorough.txt)
-    if grep -q "^VIOLATION" $out/check_${pid}_thorough.txt; then cp $out/check_${pid}_thorough.txt $out/check_$pid.txt; fi
-  fi
-fi
-if [ -z "$hits" ] || { ! grep -q "^VIOLATION" $out/check_$pid.txt && grep -q "no obligation was generated" $out/check_$pid.txt; }; then
-  (cd $V && python3 check.py $pid --tier $tier > $out/check_$pid.txt 2>$out/check_$pid.err; echo "exit=$? (tier $tier, full check; native sweep flagged nothing the restricted runs could decide)" >> $out/check_$pid.txt)
-fi
-eif [ -n "$hits" ]; then
-  (cd $V && VERIF_ONLY="$hits" python3 check.py $pid --tier $tier > $out/check_$pid.txt 2>$out/check_$pid.err; echo "exit=$? (tier $tier, restricted to the harnesses the native sweep flagged: $hits)" >> $out/check_$pid.txt)
-  if ! grep -q "^VIOLATION" $out/check_$pid.txt && [ "$tier" = quick ]; then
-    # the flagged harnesses may belong to the thorough tier only (larger bounds, slow ones)
-    (cd $V && VERIF_ONLY="$hits" python3 check.py $pid --tier thorough > $out/check_${pid}_thorough.txt 2>$out/check_${pid}_thorough.err; echo "exit=$? (tier thorough, restricted to the harnesses the native sweep flagged: $hits)" >> $out/check_${pid}_thorough.txt)
-    if grep -q "^VIOLATION" $out/check_${pid}_thorough.txt; then cp $out/check_${pid}_thorough.txt $out/check_$pid.txt; fi
-  fi
-fi
-if [ -z "$hits" ] || { ! grep -q "^VIOLATION" $out/check_$pid.txt && grep -q "no obligation was generated" $out/check_$pid.txt; }; then
-  (cd $V && python3 check.py $pid --tier $tier > $out/check_$pid.txt 2>$out/check_$pid.err; echo "exit=$? (tier $tier, full check; native sweep flagged nothing the restricted runs could decide)" >> $out/check_$pid.txt)
-fi
- if [ -n "$hits" ]; then
-  (cd $V && VERIF_ONLY="$hits" python3 check.py $pid --tier $tier > $out/check_$pid.txt 2>$out/check_$pid.err; echo "exit=$? (tier $tier, restricted to the harnesses the native sweep flagged: $hits)" >> $out/check_$pid.txt)
-  if ! grep -q "^VIOLATION" $out/check_$pid.txt && [ "$tier" = quick ]; then
-    # the flagged harnesses may belong to the thorough tier only (larger bounds, slow ones)
-    (cd $V && VERIF_ONLY="$hits" python3 check.py $pid --tier thorough > $out/check_${pid}_thorough.txt 2>$out/check_${pid}_thorough.err; echo "exit=$? (tier thorough, restricted to the harnesses the native sweep flagged: $hits)" >> $out/check_${pid}_thorough.txt)
-    if grep -q "^VIOLATION" $out/check_${pid}_thorough.txt; then cp $out/check_${pid}_thorough.txt $out/check_$pid.txt; fi
-  fi
-fi
-if [ -z "$hits" ] || { ! grep -q "^VIOLATION" $out/check_$pid.txt && grep -q "no obligation was generated" $out/check_$pid.txt; }; then
-  (cd $V && python3 check.py $pid --tier $tier > $out/check_$pid.txt 2>$out/check_$pid.err; echo "exit=$? (tier $tier, full check; native sweep flagged nothing the restricted runs could decide)" >> $out/check_$pid.txt)
-fi
-sif [ -n "$hits" ]; then
-  (cd $V && VERIF_ONLY="$hits" python3 check.py $pid --tier $tier > $out/check_$pid.txt 2>$out/check_$pid.err; echo "exit=$? (tier $tier, restricted to the harnesses the native sweep flagged: $hits)" >> $out/check_$pid.txt)
-  if ! grep -q "^VIOLATION" $out/check_$pid.txt && [ "$tier" = quick ]; then
-    # the flagged harnesses may belong to the thorough tier only (larger bounds, slow ones)
-    (cd $V && VERIF_ONLY="$hits" python3 check.py $pid --tier thorough > $out/check_${pid}_thorough.txt 2>$out/check_${pid}_thorough.err; echo "exit=$? (tier thorough, restricted to the harnesses the native sweep flagged: $hits)" >> $out/check_${pid}_thorough.txt)
-    if grep -q "^VIOLATION" $out/check_${pid}_thorough.txt; then cp $out/check_${pid}_thorough.txt $out/check_$pid.txt; fi
-  fi
-fi
-if [ -z "$hits" ] || { ! grep -q "^VIOLATION" $out/check_$pid.txt && grep -q "no obligation was generated" $out/check_$pid.txt; }; then
-  (cd $V && python3 check.py $pid --tier $tier > $out/check_$pid.txt 2>$out/check_$pid.err; echo "exit=$? (tier $tier, full check; native sweep flagged nothing the restricted runs could decide)" >> $out/check_$pid.txt)
-fi
-mif [ -n "$hits" ]; then
-  (cd $V && VERIF_ONLY="$hits" python3 check.py $pid --tier $tier > $out/check_$pid.txt 2>$out/check_$pid.err; echo "exit=$? (tier $tier, restricted to the harnesses the native sweep flagged: $hits)" >> $out/check_$pid.txt)
-  if ! grep -q "^VIOLATION" $out/check_$pid.txt && [ "$tier" = quick ]; then
-    # the flagged harnesses may belong to the thorough tier only (larger bounds, slow ones)
-    (cd $V && VERIF_ONLY="$hits" python3 check.py $pid --tier thorough > $out/check_${pid}_thorough.txt 2>$out/check_${pid}_thorough.err; echo "exit=$? (tier thorough, restricted to the harnesses the native sweep flagged: $hits)" >> $out/check_${pid}_thorough.txt)
-    if grep -q "^VIOLATION" $out/check_${pid}_thorough.txt; then cp $out/check_${pid}_thorough.txt $out/check_$pid.txt; fi
-  fi
-fi
-if [ -z "$hits" ] || { ! grep -q "^VIOLATION" $out/check_$pid.txt && grep -q "no obligation was generated" $out/check_$pid.txt; }; then
-  (cd $V && python3 check.py $pid --tier $tier > $out/check_$pid.txt 2>$out/check_$pid.err; echo "exit=$? (tier $tier, full check; native sweep flagged nothing the restricted runs could decide)" >> $out/check_$pid.txt)
-fi
-aif [ -n "$hits" ]; then
-  (cd $V && VERIF_ONLY="$hits" python3 check.py $pid --tier $tier > $out/check_$pid.txt 2>$out/check_$pid.err; echo "exit=$? (tier $tier, restricted to the harnesses the native sweep flagged: $hits)" >> $out/check_$pid.txt)
-  if ! grep -q "^VIOLATION" $out/check_$pid.txt && [ "$tier" = quick ]; then
-    # the flagged harnesses may belong to the thorough tier only (larger bounds, slow ones)
-    (cd $V && VERIF_ONLY="$hits" python3 check.py $pid --tier thorough > $out/check_${pid}_thorough.txt 2>$out/check_${pid}_thorough.err; echo "exit=$? (tier thorough, restricted to the harnesses the native sweep flagged: $hits)" >> $out/check_${pid}_thorough.txt)
-    if grep -q "^VIOLATION" $out/check_${pid}_thorough.txt; then cp $out/check_${pid}_thorough.txt $out/check_$pid.txt; fi
-  fi
-fi
-if [ -z "$hits" ] || { ! grep -q "^VIOLATION" $out/check_$pid.txt && grep -q "no obligation was generated" $out/check_$pid.txt; }; then
-  (cd $V && python3 check.py $pid --tier $tier > $out/check_$pid.txt 2>$out/check_$pid.err; echo "exit=$? (tier $tier, full check; native sweep flagged nothing the restricted runs could decide)" >> $out/check_$pid.txt)
-fi
-lif [ -n "$hits" ]; then
-  (cd $V && VERIF_ONLY="$hits" python3 check.py $pid --tier $tier > $out/check_$pid.txt 2>$out/check_$pid.err; echo "exit=$? (tier $tier, restricted to the harnesses the native sweep flagged: $hits)" >> $out/check_$pid.txt)
-  if ! grep -q "^VIOLATION" $out/check_$pid.txt && [ "$tier" = quick ]; then
-    # the flagged harnesses may belong to the thorough tier only (larger bounds, slow ones)
-    (cd $V && VERIF_ONLY="$hits" python3 check.py $pid --tier thorough > $out/check_${pid}_thorough.txt 2>$out/check_${pid}_thorough.err; echo "exit=$? (tier thorough, restricted to the harnesses the native sweep flagged: $hits)" >> $out/check_${pid}_thorough.txt)
-    if grep -q "^VIOLATION" $out/check_${pid}_thorough.txt; then cp $out/check_${pid}_thorough.txt $out/check_$pid.txt; fi
-  fi
-fi
-if [ -z "$hits" ] || { ! grep -q "^VIOLATION" $out/check_$pid.txt && grep -q "no obligation was generated" $out/check_$pid.txt; }; then
-  (cd $V && python3 check.py $pid --tier $tier > $out/check_$pid.txt 2>$out/check_$pid.err; echo "exit=$? (tier $tier, full check; native sweep flagged nothing the restricted runs could decide)" >> $out/check_$pid.txt)
-fi
-lif [ -n "$hits" ]; then
-  (cd $V && VERIF_ONLY="$hits" python3 check.py $pid --tier $tier > $out/check_$pid.txt 2>$out/check_$pid.err; echo "exit=$? (tier $tier, restricted to the harnesses the native sweep flagged: $hits)" >> $out/check_$pid.txt)
-  if ! grep -q "^VIOLATION" $out/check_$pid.txt && [ "$tier" = quick ]; then
-    # the flagged harnesses may belong to the thorough tier only (larger bounds, slow ones)
-    (cd $V && VERIF_ONLY="$hits" python3 check.py $pid --tier thorough > $out/check_${pid}_thorough.txt 2>$out/check_${pid}_thorough.err; echo "exit=$? (tier thorough, restricted to the harnesses the native sweep flagged: $hits)" >> $out/check_${pid}_thorough.txt)
-    if grep -q "^VIOLATION" $out/check_${pid}_thorough.txt; then cp $out/check_${pid}_thorough.txt $out/check_$pid.txt; fi
-  fi
-fi
-if [ -z "$hits" ] || { ! grep -q "^VIOLATION" $out/check_$pid.txt && grep -q "no obligation was generated" $out/check_$pid.txt; }; then
-  (cd $V && python3 check.py $pid --tier $tier > $out/check_$pid.txt 2>$out/check_$pid.err; echo "exit=$? (tier $tier, full check; native sweep flagged nothing the restricted runs could decide)" >> $out/check_$pid.txt)
-fi
--if [ -n "$hits" ]; then
-  (cd $V && VERIF_ONLY="$hits" python3 check.py $pid --tier $tier > $out/check_$pid.txt 2>$out/check_$pid.err; echo "exit=$? (tier $tier, restricted to the harnesses the native sweep flagged: $hits)" >> $out/check_$pid.txt)
-  if ! grep -q "^VIOLATION" $out/check_$pid.txt && [ "$tier" = quick ]; then
-    # the flagged harnesses may belong to the thorough tier only (larger bounds, slow ones)
-    (cd $V && VERIF_ONLY="$hits" python3 check.py $pid --tier thorough > $out/check_${pid}_thorough.txt 2>$out/check_${pid}_thorough.err; echo "exit=$? (tier thorough, restricted to the harnesses the native sweep flagged: $hits)" >> $out/check_${pid}_thorough.txt)
-    if grep -q "^VIOLATION" $out/check_${pid}_thorough.txt; then cp $out/check_${pid}_thorough.txt $out/check_$pid.txt; fi
-  fi
-fi
-if [ -z "$hits" ] || { ! grep -q "^VIOLATION" $out/check_$pid.txt && grep -q "no obligation was generated" $out/check_$pid.txt; }; then
-  (cd $V && python3 check.py $pid --tier $tier > $out/check_$pid.txt 2>$out/check_$pid.err; echo "exit=$? (tier $tier, full check; native sweep flagged nothing the restricted runs could decide)" >> $out/check_$pid.txt)
-fi
-sif [ -n "$hits" ]; then
-  (cd $V && VERIF_ONLY="$hits" python3 check.py $pid --tier $tier > $out/check_$pid.txt 2>$out/check_$pid.err; echo "exit=$? (tier $tier, restricted to the harnesses the native sweep flagged: $hits)" >> $out/check_$pid.txt)
-  if ! grep -q "^VIOLATION" $out/check_$pid.txt && [ "$tier" = quick ]; then
-    # the flagged harnesses may belong to the thorough tier only (larger bounds, slow ones)
-    (cd $V && VERIF_ONLY="$hits" python3 check.py $pid --tier thorough > $out/check_${pid}_thorough.txt 2>$out/check_${pid}_thorough.err; echo "exit=$? (tier thorough, restricted to the harnesses the native sweep flagged: $hits)" >> $out/check_${pid}_thorough.txt)
-    if grep -q "^VIOLATION" $out/check_${pid}_thorough.txt; then cp $out/check_${pid}_thorough.txt $out/check_$pid.txt; fi
-  fi
-fi
-if [ -z "$hits" ] || { ! grep -q "^VIOLATION" $out/check_$pid.txt && grep -q "no obligation was generated" $out/check_$pid.txt; }; then
-  (cd $V && python3 check.py $pid --tier $tier > $out/check_$pid.txt 2>$out/check_$pid.err; echo "exit=$? (tier $tier, full check; native sweep flagged nothing the restricted runs could decide)" >> $out/check_$pid.txt)
-fi
-cif [ -n "$hits" ]; then
-  (cd $V && VERIF_ONLY="$hits" python3 check.py $pid --tier $tier > $out/check_$pid.txt 2>$out/check_$pid.err; echo "exit=$? (tier $tier, restricted to the harnesses the native sweep flagged: $hits)" >> $out/check_$pid.txt)
-  if ! grep -q "^VIOLATION" $out/check_$pid.txt && [ "$tier" = quick ]; then
-    # the flagged harnesses may belong to the thorough tier only (larger bounds, slow ones)
-    (cd $V && VERIF_ONLY="$hits" python3 check.py $pid --tier thorough > $out/check_${pid}_thorough.txt 2>$out/check_${pid}_thorough.err; echo "exit=$? (tier thorough, restricted to the harnesses the native sweep flagged: $hits)" >> $out/check_${pid}_thorough.txt)
-    if grep -q "^VIOLATION" $out/check_${pid}_thorough.txt; then cp $out/check_${pid}_thorough.txt $out/check_$pid.txt; fi
-  fi
-fi
-if [ -z "$hits" ] || { ! grep -q "^VIOLATION" $out/check_$pid.txt && grep -q "no obligation was generated" $out/check_$pid.txt; }; then
-  (cd $V && python3 check.py $pid --tier $tier > $out/check_$pid.txt 2>$out/check_$pid.err; echo "exit=$? (tier $tier, full check; native sweep flagged nothing the restricted runs could decide)" >> $out/check_$pid.txt)
-fi
-oif [ -n "$hits" ]; then
-  (cd $V && VERIF_ONLY="$hits" python3 check.py $pid --tier $tier > $out/check_$pid.txt 2>$out/check_$pid.err; echo "exit=$? (tier $tier, restricted to the harnesses the native sweep flagged: $hits)" >> $out/check_$pid.txt)
-  if ! grep -q "^VIOLATION" $out/check_$pid.txt && [ "$tier" = quick ]; then
-    # the flagged harnesses may belong to the thorough tier only (larger bounds, slow ones)
-    (cd $V && VERIF_ONLY="$hits" python3 check.py $pid --tier thorough > $out/check_${pid}_thorough.txt 2>$out/check_${pid}_thorough.err; echo "exit=$? (tier thorough, restricted to the harnesses the native sweep flagged: $hits)" >> $out/check_${pid}_thorough.txt)
-    if grep -q "^VIOLATION" $out/check_${pid}_thorough.txt; then cp $out/check_${pid}_thorough.txt $out/check_$pid.txt; fi
-  fi
-fi
-if [ -z "$hits" ] || { ! grep -q "^VIOLATION" $out/check_$pid.txt && grep -q "no obligation was generated" $out/check_$pid.txt; }; then
-  (cd $V && python3 check.py $pid --tier $tier > $out/check_$pid.txt 2>$out/check_$pid.err; echo "exit=$? (tier $tier, full check; native sweep flagged nothing the restricted runs could decide)" >> $out/check_$pid.txt)
-fi
-pif [ -n "$hits" ]; then
-  (cd $V && VERIF_ONLY="$hits" python3 check.py $pid --tier $tier > $out/check_$pid.txt 2>$out/check_$pid.err; echo "exit=$? (tier $tier, restricted to the harnesses the native sweep flagged: $hits)" >> $out/check_$pid.txt)
-  if ! grep -q "^VIOLATION" $out/check_$pid.txt && [ "$tier" = quick ]; then
-    # the flagged harnesses may belong to the thorough tier only (larger bounds, slow ones)
-    (cd $V && VERIF_ONLY="$hits" python3 check.py $pid --tier thorough > $out/check_${pid}_thorough.txt 2>$out/check_${pid}_thorough.err; echo "exit=$? (tier thorough, restricted to the harnesses the native sweep flagged: $hits)" >> $out/check_${pid}_thorough.txt)
-    if grep -q "^VIOLATION" $out/check_${pid}_thorough.txt; then cp $out/check_${pid}_thorough.txt $out/check_$pid.txt; fi
-  fi
-fi
-if [ -z "$hits" ] || { ! grep -q "^VIOLATION" $out/check_$pid.txt && grep -q "no obligation was generated" $out/check_$pid.txt; }; then
-  (cd $V && python3 check.py $pid --tier $tier > $out/check_$pid.txt 2>$out/check_$pid.err; echo "exit=$? (tier $tier, full check; native sweep flagged nothing the restricted runs could decide)" >> $out/check_$pid.txt)
-fi
-eif [ -n "$hits" ]; then
-  (cd $V && VERIF_ONLY="$hits" python3 check.py $pid --tier $tier > $out/check_$pid.txt 2>$out/check_$pid.err; echo "exit=$? (tier $tier, restricted to the harnesses the native sweep flagged: $hits)" >> $out/check_$pid.txt)
-  if ! grep -q "^VIOLATION" $out/check_$pid.txt && [ "$tier" = quick ]; then
-    # the flagged harnesses may belong to the thorough tier only (larger bounds, slow ones)
-    (cd $V && VERIF_ONLY="$hits" python3 check.py $pid --tier thorough > $out/check_${pid}_thorough.txt 2>$out/check_${pid}_thorough.err; echo "exit=$? (tier thorough, restricted to the harnesses the native sweep flagged: $hits)" >> $out/check_${pid}_thorough.txt)
-    if grep -q "^VIOLATION" $out/check_${pid}_thorough.txt; then cp $out/check_${pid}_thorough.txt $out/check_$pid.txt; fi
-  fi
-fi
-if [ -z "$hits" ] || { ! grep -q "^VIOLATION" $out/check_$pid.txt && grep -q "no obligation was generated" $out/check_$pid.txt; }; then
-  (cd $V && python3 check.py $pid --tier $tier > $out/check_$pid.txt 2>$out/check_$pid.err; echo "exit=$? (tier $tier, full check; native sweep flagged nothing the restricted runs could decide)" >> $out/check_$pid.txt)
-fi
- if [ -n "$hits" ]; then
-  (cd $V && VERIF_ONLY="$hits" python3 check.py $pid --tier $tier > $out/check_$pid.txt 2>$out/check_$pid.err; echo "exit=$? (tier $tier, restricted to the harnesses the native sweep flagged: $hits)" >> $out/check_$pid.txt)
-  if ! grep -q "^VIOLATION" $out/check_$pid.txt && [ "$tier" = quick ]; then
-    # the flagged harnesses may belong to the thorough tier only (larger bounds, slow ones)
-    (cd $V && VERIF_ONLY="$hits" python3 check.py $pid --tier thorough > $out/check_${pid}_thorough.txt 2>$out/check_${pid}_thorough.err; echo "exit=$? (tier thorough, restricted to the harnesses the native sweep flagged: $hits)" >> $out/check_${pid}_thorough.txt)
-    if grep -q "^VIOLATION" $out/check_${pid}_thorough.txt; then cp $out/check_${pid}_thorough.txt $out/check_$pid.txt; fi
-  fi
-fi
-if [ -z "$hits" ] || { ! grep -q "^VIOLATION" $out/check_$pid.txt && grep -q "no obligation was generated" $out/check_$pid.txt; }; then
-  (cd $V && python3 check.py $pid --tier $tier > $out/check_$pid.txt 2>$out/check_$pid.err; echo "exit=$? (tier $tier, full check; native sweep flagged nothing the restricted runs could decide)" >> $out/check_$pid.txt)
-fi
-sif [ -n "$hits" ]; then
-  (cd $V && VERIF_ONLY="$hits" python3 check.py $pid --tier $tier > $out/check_$pid.txt 2>$out/check_$pid.err; echo "exit=$? (tier $tier, restricted to the harnesses the native sweep flagged: $hits)" >> $out/check_$pid.txt)
-  if ! grep -q "^VIOLATION" $out/check_$pid.txt && [ "$tier" = quick ]; then
-    # the flagged harnesses may belong to the thorough tier only (larger bounds, slow ones)
-    (cd $V && VERIF_ONLY="$hits" python3 check.py $pid --tier thorough > $out/check_${pid}_thorough.txt 2>$out/check_${pid}_thorough.err; echo "exit=$? (tier thorough, restricted to the harnesses the native sweep flagged: $hits)" >> $out/check_${pid}_thorough.txt)
-    if grep -q "^VIOLATION" $out/check_${pid}_thorough.txt; then cp $out/check_${pid}_thorough.txt $out/check_$pid.txt; fi
-  fi
-fi
-if [ -z "$hits" ] || { ! grep -q "^VIOLATION" $out/check_$pid.txt && grep -q "no obligation was generated" $out/check_$pid.txt; }; then
-  (cd $V && python3 check.py $pid --tier $tier > $out/check_$pid.txt 2>$out/check_$pid.err; echo "exit=$? (tier $tier, full check; native sweep flagged nothing the restricted runs could decide)" >> $out/check_$pid.txt)
-fi
-wif [ -n "$hits" ]; then
-  (cd $V && VERIF_ONLY="$hits" python3 check.py $pid --tier $tier > $out/check_$pid.txt 2>$out/check_$pid.err; echo "exit=$? (tier $tier, restricted to the harnesses the native sweep flagged: $hits)" >> $out/check_$pid.txt)
-  if ! grep -q "^VIOLATION" $out/check_$pid.txt && [ "$tier" = quick ]; then
-    # the flagged harnesses may belong to the thorough tier only (larger bounds, slow ones)
-    (cd $V && VERIF_ONLY="$hits" python3 check.py $pid --tier thorough > $out/check_${pid}_thorough.txt 2>$out/check_${pid}_thorough.err; echo "exit=$? (tier thorough, restricted to the harnesses the native sweep flagged: $hits)" >> $out/check_${pid}_thorough.txt)
-    if grep -q "^VIOLATION" $out/check_${pid}_thorough.txt; then cp $out/check_${pid}_thorough.txt $out/check_$pid.txt; fi
-  fi
-fi
-if [ -z "$hits" ] || { ! grep -q "^VIOLATION" $out/check_$pid.txt && grep -q "no obligation was generated" $out/check_$pid.txt; }; then
-  (cd $V && python3 check.py $pid --tier $tier > $out/check_$pid.txt 2>$out/check_$pid.err; echo "exit=$? (tier $tier, full check; native sweep flagged nothing the restricted runs could decide)" >> $out/check_$pid.txt)
-fi
-eif [ -n "$hits" ]; then
-  (cd $V && VERIF_ONLY="$hits" python3 check.py $pid --tier $tier > $out/check_$pid.txt 2>$out/check_$pid.err; echo "exit=$? (tier $tier, restricted to the harnesses the native sweep flagged: $hits)" >> $out/check_$pid.txt)
-  if ! grep -q "^VIOLATION" $out/check_$pid.txt && [ "$tier" = quick ]; then
-    # the flagged harnesses may belong to the thorough tier only (larger bounds, slow ones)
-    (cd $V && VERIF_ONLY="$hits" python3 check.py $pid --tier thorough > $out/check_${pid}_thorough.txt 2>$out/check_${pid}_thorough.err; echo "exit=$? (tier thorough, restricted to the harnesses the native sweep flagged: $hits)" >> $out/check_${pid}_thorough.txt)
-    if grep -q "^VIOLATION" $out/check_${pid}_thorough.txt; then cp $out/check_${pid}_thorough.txt $out/check_$pid.txt; fi
-  fi
-fi
-if [ -z "$hits" ] || { ! grep -q "^VIOLATION" $out/check_$pid.txt && grep -q "no obligation was generated" $out/check_$pid.txt; }; then
-  (cd $V && python3 check.py $pid --tier $tier > $out/check_$pid.txt 2>$out/check_$pid.err; echo "exit=$? (tier $tier, full check; native sweep flagged nothing the restricted runs could decide)" >> $out/check_$pid.txt)
-fi
-eif [ -n "$hits" ]; then
-  (cd $V && VERIF_ONLY="$hits" python3 check.py $pid --tier $tier > $out/check_$pid.txt 2>$out/check_$pid.err; echo "exit=$? (tier $tier, restricted to the harnesses the native sweep flagged: $hits)" >> $out/check_$pid.txt)
-  if ! grep -q "^VIOLATION" $out/check_$pid.txt && [ "$tier" = quick ]; then
-    # the flagged harnesses may belong to the thorough tier only (larger bounds, slow ones)
-    (cd $V && VERIF_ONLY="$hits" python3 check.py $pid --tier thorough > $out/check_${pid}_thorough.txt 2>$out/check_${pid}_thorough.err; echo "exit=$? (tier thorough, restricted to the harnesses the native sweep flagged: $hits)" >> $out/check_${pid}_thorough.txt)
-    if grep -q "^VIOLATION" $out/check_${pid}_thorough.txt; then cp $out/check_${pid}_thorough.txt $out/check_$pid.txt; fi
-  fi
-fi
-if [ -z "$hits" ] || { ! grep -q "^VIOLATION" $out/check_$pid.txt && grep -q "no obligation was generated" $out/check_$pid.txt; }; then
-  (cd $V && python3 check.py $pid --tier $tier > $out/check_$pid.txt 2>$out/check_$pid.err; echo "exit=$? (tier $tier, full check; native sweep flagged nothing the restricted runs could decide)" >> $out/check_$pid.txt)
-fi
-pif [ -n "$hits" ]; then
-  (cd $V && VERIF_ONLY="$hits" python3 check.py $pid --tier $tier > $out/check_$pid.txt 2>$out/check_$pid.err; echo "exit=$? (tier $tier, restricted to the harnesses the native sweep flagged: $hits)" >> $out/check_$pid.txt)
-  if ! grep -q "^VIOLATION" $out/check_$pid.txt && [ "$tier" = quick ]; then
-    # the flagged harnesses may belong to the thorough tier only (larger bounds, slow ones)
-    (cd $V && VERIF_ONLY="$hits" python3 check.py $pid --tier thorough > $out/check_${pid}_thorough.txt 2>$out/check_${pid}_thorough.err; echo "exit=$? (tier thorough, restricted to the harnesses the native sweep flagged: $hits)" >> $out/check_${pid}_thorough.txt)
-    if grep -q "^VIOLATION" $out/check_${pid}_thorough.txt; then cp $out/check_${pid}_thorough.txt $out/check_$pid.txt; fi
-  fi
-fi
-if [ -z "$hits" ] || { ! grep -q "^VIOLATION" $out/check_$pid.txt && grep -q "no obligation was generated" $out/check_$pid.txt; }; then
-  (cd $V && python3 check.py $pid --tier $tier > $out/check_$pid.txt 2>$out/check_$pid.err; echo "exit=$? (tier $tier, full check; native sweep flagged nothing the restricted runs could decide)" >> $out/check_$pid.txt)
-fi
- if [ -n "$hits" ]; then
-  (cd $V && VERIF_ONLY="$hits" python3 check.py $pid --tier $tier > $out/check_$pid.txt 2>$out/check_$pid.err; echo "exit=$? (tier $tier, restricted to the harnesses the native sweep flagged: $hits)" >> $out/check_$pid.txt)
-  if ! grep -q "^VIOLATION" $out/check_$pid.txt && [ "$tier" = quick ]; then
-    # the flagged harnesses may belong to the thorough tier only (larger bounds, slow ones)
-    (cd $V && VERIF_ONLY="$hits" python3 check.py $pid --tier thorough > $out/check_${pid}_thorough.txt 2>$out/check_${pid}_thorough.err; echo "exit=$? (tier thorough, restricted to the harnesses the native sweep flagged: $hits)" >> $out/check_${pid}_thorough.txt)
-    if grep -q "^VIOLATION" $out/check_${pid}_thorough.txt; then cp $out/check_${pid}_thorough.txt $out/check_$pid.txt; fi
-  fi
-fi
-if [ -z "$hits" ] || { ! grep -q "^VIOLATION" $out/check_$pid.txt && grep -q "no obligation was generated" $out/check_$pid.txt; }; then
-  (cd $V && python3 check.py $pid --tier $tier > $out/check_$pid.txt 2>$out/check_$pid.err; echo "exit=$? (tier $tier, full check; native sweep flagged nothing the restricted runs could decide)" >> $out/check_$pid.txt)
-fi
-oif [ -n "$hits" ]; then
-  (cd $V && VERIF_ONLY="$hits" python3 check.py $pid --tier $tier > $out/check_$pid.txt 2>$out/check_$pid.err; echo "exit=$? (tier $tier, restricted to the harnesses the native sweep flagged: $hits)" >> $out/check_$pid.txt)
-  if ! grep -q "^VIOLATION" $out/check_$pid.txt && [ "$tier" = quick ]; then
-    # the flagged harnesses may belong to the thorough tier only (larger bounds, slow ones)
-    (cd $V && VERIF_ONLY="$hits" python3 check.py $pid --tier thorough > $out/check_${pid}_thorough.txt 2>$out/check_${pid}_thorough.err; echo "exit=$? (tier thorough, restricted to the harnesses the native sweep flagged: $hits)" >> $out/check_${pid}_thorough.txt)
-    if grep -q "^VIOLATION" $out/check_${pid}_thorough.txt; then cp $out/check_${pid}_thorough.txt $out/check_$pid.txt; fi
-  fi
-fi
-if [ -z "$hits" ] || { ! grep -q "^VIOLATION" $out/check_$pid.txt && grep -q "no obligation was generated" $out/check_$pid.txt; }; then
-  (cd $V && python3 check.py $pid --tier $tier > $out/check_$pid.txt 2>$out/check_$pid.err; echo "exit=$? (tier $tier, full check; native sweep flagged nothing the restricted runs could decide)" >> $out/check_$pid.txt)
-fi
-fif [ -n "$hits" ]; then
-  (cd $V && VERIF_ONLY="$hits" python3 check.py $pid --tier $tier > $out/check_$pid.txt 2>$out/check_$pid.err; echo "exit=$? (tier $tier, restricted to the harnesses the native sweep flagged: $hits)" >> $out/check_$pid.txt)
-  if ! grep -q "^VIOLATION" $out/check_$pid.txt && [ "$tier" = quick ]; then
-    # the flagged harnesses may belong to the thorough tier only (larger bounds, slow ones)
-    (cd $V && VERIF_ONLY="$hits" python3 check.py $pid --tier thorough > $out/check_${pid}_thorough.txt 2>$out/check_${pid}_thorough.err; echo "exit=$? (tier thorough, restricted to the harnesses the native sweep flagged: $hits)" >> $out/check_${pid}_thorough.txt)
-    if grep -q "^VIOLATION" $out/check_${pid}_thorough.txt; then cp $out/check_${pid}_thorough.txt $out/check_$pid.txt; fi
-  fi
-fi
-if [ -z "$hits" ] || { ! grep -q "^VIOLATION" $out/check_$pid.txt && grep -q "no obligation was generated" $out/check_$pid.txt; }; then
-  (cd $V && python3 check.py $pid --tier $tier > $out/check_$pid.txt 2>$out/check_$pid.err; echo "exit=$? (tier $tier, full check; native sweep flagged nothing the restricted runs could decide)" >> $out/check_$pid.txt)
-fi
- if [ -n "$hits" ]; then
-  (cd $V && VERIF_ONLY="$hits" python3 check.py $pid --tier $tier > $out/check_$pid.txt 2>$out/check_$pid.err; echo "exit=$? (tier $tier, restricted to the harnesses the native sweep flagged: $hits)" >> $out/check_$pid.txt)
-  if ! grep -q "^VIOLATION" $out/check_$pid.txt && [ "$tier" = quick ]; then
-    # the flagged harnesses may belong to the thorough tier only (larger bounds, slow ones)
-    (cd $V && VERIF_ONLY="$hits" python3 check.py $pid --tier thorough > $out/check_${pid}_thorough.txt 2>$out/check_${pid}_thorough.err; echo "exit=$? (tier thorough, restricted to the harnesses the native sweep flagged: $hits)" >> $out/check_${pid}_thorough.txt)
-    if grep -q "^VIOLATION" $out/check_${pid}_thorough.txt; then cp $out/check_${pid}_thorough.txt $out/check_$pid.txt; fi
-  fi
-fi
-if [ -z "$hits" ] || { ! grep -q "^VIOLATION" $out/check_$pid.txt && grep -q "no obligation was generated" $out/check_$pid.txt; }; then
-  (cd $V && python3 check.py $pid --tier $tier > $out/check_$pid.txt 2>$out/check_$pid.err; echo "exit=$? (tier $tier, full check; native sweep flagged nothing the restricted runs could decide)" >> $out/check_$pid.txt)
-fi
-aif [ -n "$hits" ]; then
-  (cd $V && VERIF_ONLY="$hits" python3 check.py $pid --tier $tier > $out/check_$pid.txt 2>$out/check_$pid.err; echo "exit=$? (tier $tier, restricted to the harnesses the native sweep flagged: $hits)" >> $out/check_$pid.txt)
-  if ! grep -q "^VIOLATION" $out/check_$pid.txt && [ "$tier" = quick ]; then
-    # the flagged harnesses may belong to the thorough tier only (larger bounds, slow ones)
-    (cd $V && VERIF_ONLY="$hits" python3 check.py $pid --tier thorough > $out/check_${pid}_thorough.txt 2>$out/check_${pid}_thorough.err; echo "exit=$? (tier thorough, restricted to the harnesses the native sweep flagged: $hits)" >> $out/check_${pid}_thorough.txt)
-    if grep -q "^VIOLATION" $out/check_${pid}_thorough.txt; then cp $out/check_${pid}_thorough.txt $out/check_$pid.txt; fi
-  fi
-fi
-if [ -z "$hits" ] || { ! grep -q "^VIOLATION" $out/check_$pid.txt && grep -q "no obligation was generated" $out/check_$pid.txt; }; then
-  (cd $V && python3 check.py $pid --tier $tier > $out/check_$pid.txt 2>$out/check_$pid.err; echo "exit=$? (tier $tier, full check; native sweep flagged nothing the restricted runs could decide)" >> $out/check_$pid.txt)
-fi
-lif [ -n "$hits" ]; then
-  (cd $V && VERIF_ONLY="$hits" python3 check.py $pid --tier $tier > $out/check_$pid.txt 2>$out/check_$pid.err; echo "exit=$? (tier $tier, restricted to the harnesses the native sweep flagged: $hits)" >> $out/check_$pid.txt)
-  if ! grep -q "^VIOLATION" $out/check_$pid.txt && [ "$tier" = quick ]; then
-    # the flagged harnesses may belong to the thorough tier only (larger bounds, slow ones)
-    (cd $V && VERIF_ONLY="$hits" python3 check.py $pid --tier thorough > $out/check_${pid}_thorough.txt 2>$out/check_${pid}_thorough.err; echo "exit=$? (tier thorough, restricted to the harnesses the native sweep flagged: $hits)" >> $out/check_${pid}_thorough.txt)
-    if grep -q "^VIOLATION" $out/check_${pid}_thorough.txt; then cp $out/check_${pid}_thorough.txt $out/check_$pid.txt; fi
-  fi
-fi
-if [ -z "$hits" ] || { ! grep -q "^VIOLATION" $out/check_$pid.txt && grep -q "no obligation was generated" $out/check_$pid.txt; }; then
-  (cd $V && python3 check.py $pid --tier $tier > $out/check_$pid.txt 2>$out/check_$pid.err; echo "exit=$? (tier $tier, full check; native sweep flagged nothing the restricted runs could decide)" >> $out/check_$pid.txt)
-fi
-lif [ -n "$hits" ]; then
-  (cd $V && VERIF_ONLY="$hits" python3 check.py $pid --tier $tier > $out/check_$pid.txt 2>$out/check_$pid.err; echo "exit=$? (tier $tier, restricted to the harnesses the native sweep flagged: $hits)" >> $out/check_$pid.txt)
-  if ! grep -q "^VIOLATION" $out/check_$pid.txt && [ "$tier" = quick ]; then
-    # the flagged harnesses may belong to the thorough tier only (larger bounds, slow ones)
-    (cd $V && VERIF_ONLY="$hits" python3 check.py $pid --tier thorough > $out/check_${pid}_thorough.txt 2>$out/check_${pid}_thorough.err; echo "exit=$? (tier thorough, restricted to the harnesses the native sweep flagged: $hits)" >> $out/check_${pid}_thorough.txt)
-    if grep -q "^VIOLATION" $out/check_${pid}_thorough.txt; then cp $out/check_${pid}_thorough.txt $out/check_$pid.txt; fi
-  fi
-fi
-if [ -z "$hits" ] || { ! grep -q "^VIOLATION" $out/check_$pid.txt && grep -q "no obligation was generated" $out/check_$pid.txt; }; then
-  (cd $V && python3 check.py $pid --tier $tier > $out/check_$pid.txt 2>$out/check_$pid.err; echo "exit=$? (tier $tier, full check; native sweep flagged nothing the restricted runs could decide)" >> $out/check_$pid.txt)
-fi
- if [ -n "$hits" ]; then
-  (cd $V && VERIF_ONLY="$hits" python3 check.py $pid --tier $tier > $out/check_$pid.txt 2>$out/check_$pid.err; echo "exit=$? (tier $tier, restricted to the harnesses the native sweep flagged: $hits)" >> $out/check_$pid.txt)
-  if ! grep -q "^VIOLATION" $out/check_$pid.txt && [ "$tier" = quick ]; then
-    # the flagged harnesses may belong to the thorough tier only (larger bounds, slow ones)
-    (cd $V && VERIF_ONLY="$hits" python3 check.py $pid --tier thorough > $out/check_${pid}_thorough.txt 2>$out/check_${pid}_thorough.err; echo "exit=$? (tier thorough, restricted to the harnesses the native sweep flagged: $hits)" >> $out/check_${pid}_thorough.txt)
-    if grep -q "^VIOLATION" $out/check_${pid}_thorough.txt; then cp $out/check_${pid}_thorough.txt $out/check_$pid.txt; fi
-  fi
-fi
-if [ -z "$hits" ] || { ! grep -q "^VIOLATION" $out/check_$pid.txt && grep -q "no obligation was generated" $out/check_$pid.txt; }; then
-  (cd $V && python3 check.py $pid --tier $tier > $out/check_$pid.txt 2>$out/check_$pid.err; echo "exit=$? (tier $tier, full check; native sweep flagged nothing the restricted runs could decide)" >> $out/check_$pid.txt)
-fi
-hif [ -n "$hits" ]; then
-  (cd $V && VERIF_ONLY="$hits" python3 check.py $pid --tier $tier > $out/check_$pid.txt 2>$out/check_$pid.err; echo "exit=$? (tier $tier, restricted to the harnesses the native sweep flagged: $hits)" >> $out/check_$pid.txt)
-  if ! grep -q "^VIOLATION" $out/check_$pid.txt && [ "$tier" = quick ]; then
-    # the flagged harnesses may belong to the thorough tier only (larger bounds, slow ones)
-    (cd $V && VERIF_ONLY="$hits" python3 check.py $pid --tier thorough > $out/check_${pid}_thorough.txt 2>$out/check_${pid}_thorough.err; echo "exit=$? (tier thorough, restricted to the harnesses the native sweep flagged: $hits)" >> $out/check_${pid}_thorough.txt)
-    if grep -q "^VIOLATION" $out/check_${pid}_thorough.txt; then cp $out/check_${pid}_thorough.txt $out/check_$pid.txt; fi
-  fi
-fi
-if [ -z "$hits" ] || { ! grep -q "^VIOLATION" $out/check_$pid.txt && grep -q "no obligation was generated" $out/check_$pid.txt; }; then
-  (cd $V && python3 check.py $pid --tier $tier > $out/check_$pid.txt 2>$out/check_$pid.err; echo "exit=$? (tier $tier, full check; native sweep flagged nothing the restricted runs could decide)" >> $out/check_$pid.txt)
-fi
-aif [ -n "$hits" ]; then
-  (cd $V && VERIF_ONLY="$hits" python3 check.py $pid --tier $tier > $out/check_$pid.txt 2>$out/check_$pid.err; echo "exit=$? (tier $tier, restricted to the harnesses the native sweep flagged: $hits)" >> $out/check_$pid.txt)
-  if ! grep -q "^VIOLATION" $out/check_$pid.txt && [ "$tier" = quick ]; then
-    # the flagged harnesses may belong to the thorough tier only (larger bounds, slow ones)
-    (cd $V && VERIF_ONLY="$hits" python3 check.py $pid --tier thorough > $out/check_${pid}_thorough.txt 2>$out/check_${pid}_thorough.err; echo "exit=$? (tier thorough, restricted to the harnesses the native sweep flagged: $hits)" >> $out/check_${pid}_thorough.txt)
-    if grep -q "^VIOLATION" $out/check_${pid}_thorough.txt; then cp $out/check_${pid}_thorough.txt $out/check_$pid.txt; fi
-  fi
-fi
-if [ -z "$hits" ] || { ! grep -q "^VIOLATION" $out/check_$pid.txt && grep -q "no obligation was generated" $out/check_$pid.txt; }; then
-  (cd $V && python3 check.py $pid --tier $tier > $out/check_$pid.txt 2>$out/check_$pid.err; echo "exit=$? (tier $tier, full check; native sweep flagged nothing the restricted runs could decide)" >> $out/check_$pid.txt)
-fi
-rif [ -n "$hits" ]; then
-  (cd $V && VERIF_ONLY="$hits" python3 check.py $pid --tier $tier > $out/check_$pid.txt 2>$out/check_$pid.err; echo "exit=$? (tier $tier, restricted to the harnesses the native sweep flagged: $hits)" >> $out/check_$pid.txt)
-  if ! grep -q "^VIOLATION" $out/check_$pid.txt && [ "$tier" = quick ]; then
-    # the flagged harnesses may belong to the thorough tier only (larger bounds, slow ones)
-    (cd $V && VERIF_ONLY="$hits" python3 check.py $pid --tier thorough > $out/check_${pid}_thorough.txt 2>$out/check_${pid}_thorough.err; echo "exit=$? (tier thorough, restricted to the harnesses the native sweep flagged: $hits)" >> $out/check_${pid}_thorough.txt)
-    if grep -q "^VIOLATION" $out/check_${pid}_thorough.txt; then cp $out/check_${pid}_thorough.txt $out/check_$pid.txt; fi
-  fi
-fi
-if [ -z "$hits" ] || { ! grep -q "^VIOLATION" $out/check_$pid.txt && grep -q "no obligation was generated" $out/check_$pid.txt; }; then
-  (cd $V && python3 check.py $pid --tier $tier > $out/check_$pid.txt 2>$out/check_$pid.err; echo "exit=$? (tier $tier, full check; native sweep flagged nothing the restricted runs could decide)" >> $out/check_$pid.txt)
-fi
-nif [ -n "$hits" ]; then
-  (cd $V && VERIF_ONLY="$hits" python3 check.py $pid --tier $tier > $out/check_$pid.txt 2>$out/check_$pid.err; echo "exit=$? (tier $tier, restricted to the harnesses the native sweep flagged: $hits)" >> $out/check_$pid.txt)
-  if ! grep -q "^VIOLATION" $out/check_$pid.txt && [ "$tier" = quick ]; then
-    # the flagged harnesses may belong to the thorough tier only (larger bounds, slow ones)
-    (cd $V && VERIF_ONLY="$hits" python3 check.py $pid --tier thorough > $out/check_${pid}_thorough.txt 2>$out/check_${pid}_thorough.err; echo "exit=$? (tier thorough, restricted to the harnesses the native sweep flagged: $hits)" >> $out/check_${pid}_thorough.txt)
-    if grep -q "^VIOLATION" $out/check_${pid}_thorough.txt; then cp $out/check_${pid}_thorough.txt $out/check_$pid.txt; fi
-  fi
-fi
-if [ -z "$hits" ] || { ! grep -q "^VIOLATION" $out/check_$pid.txt && grep -q "no obligation was generated" $out/check_$pid.txt; }; then
-  (cd $V && python3 check.py $pid --tier $tier > $out/check_$pid.txt 2>$out/check_$pid.err; echo "exit=$? (tier $tier, full check; native sweep flagged nothing the restricted runs could decide)" >> $out/check_$pid.txt)
-fi
-eif [ -n "$hits" ]; then
-  (cd $V && VERIF_ONLY="$hits" python3 check.py $pid --tier $tier > $out/check_$pid.txt 2>$out/check_$pid.err; echo "exit=$? (tier $tier, restricted to the harnesses the native sweep flagged: $hits)" >> $out/check_$pid.txt)
-  if ! grep -q "^VIOLATION" $out/check_$pid.txt && [ "$tier" = quick ]; then
-    # the flagged harnesses may belong to the thorough tier only (larger bounds, slow ones)
-    (cd $V && VERIF_ONLY="$hits" python3 check.py $pid --tier thorough > $out/check_${pid}_thorough.txt 2>$out/check_${pid}_thorough.err; echo "exit=$? (tier thorough, restricted to the harnesses the native sweep flagged: $hits)" >> $out/check_${pid}_thorough.txt)
-    if grep -q "^VIOLATION" $out/check_${pid}_thorough.txt; then cp $out/check_${pid}_thorough.txt $out/check_$pid.txt; fi
-  fi
-fi
-if [ -z "$hits" ] || { ! grep -q "^VIOLATION" $out/check_$pid.txt && grep -q "no obligation was generated" $out/check_$pid.txt; }; then
-  (cd $V && python3 check.py $pid --tier $tier > $out/check_$pid.txt 2>$out/check_$pid.err; echo "exit=$? (tier $tier, full check; native sweep flagged nothing the restricted runs could decide)" >> $out/check_$pid.txt)
-fi
-sif [ -n "$hits" ]; then
-  (cd $V && VERIF_ONLY="$hits" python3 check.py $pid --tier $tier > $out/check_$pid.txt 2>$out/check_$pid.err; echo "exit=$? (tier $tier, restricted to the harnesses the native sweep flagged: $hits)" >> $out/check_$pid.txt)
-  if ! grep -q "^VIOLATION" $out/check_$pid.txt && [ "$tier" = quick ]; then
-    # the flagged harnesses may belong to the thorough tier only (larger bounds, slow ones)
-    (cd $V && VERIF_ONLY="$hits" python3 check.py $pid --tier thorough > $out/check_${pid}_thorough.txt 2>$out/check_${pid}_thorough.err; echo "exit=$? (tier thorough, restricted to the harnesses the native sweep flagged: $hits)" >> $out/check_${pid}_thorough.txt)
-    if grep -q "^VIOLATION" $out/check_${pid}_thorough.txt; then cp $out/check_${pid}_thorough.txt $out/check_$pid.txt; fi
-  fi
-fi
-if [ -z "$hits" ] || { ! grep -q "^VIOLATION" $out/check_$pid.txt && grep -q "no obligation was generated" $out/check_$pid.txt; }; then
-  (cd $V && python3 check.py $pid --tier $tier > $out/check_$pid.txt 2>$out/check_$pid.err; echo "exit=$? (tier $tier, full check; native sweep flagged nothing the restricted runs could decide)" >> $out/check_$pid.txt)
-fi
-sif [ -n "$hits" ]; then
-  (cd $V && VERIF_ONLY="$hits" python3 check.py $pid --tier $tier > $out/check_$pid.txt 2>$out/check_$pid.err; echo "exit=$? (tier $tier, restricted to the harnesses the native sweep flagged: $hits)" >> $out/check_$pid.txt)
-  if ! grep -q "^VIOLATION" $out/check_$pid.txt && [ "$tier" = quick ]; then
-    # the flagged harnesses may belong to the thorough tier only (larger bounds, slow ones)
-    (cd $V && VERIF_ONLY="$hits" python3 check.py $pid --tier thorough > $out/check_${pid}_thorough.txt 2>$out/check_${pid}_thorough.err; echo "exit=$? (tier thorough, restricted to the harnesses the native sweep flagged: $hits)" >> $out/check_${pid}_thorough.txt)
-    if grep -q "^VIOLATION" $out/check_${pid}_thorough.txt; then cp $out/check_${pid}_thorough.txt $out/check_$pid.txt; fi
-  fi
-fi
-if [ -z "$hits" ] || { ! grep -q "^VIOLATION" $out/check_$pid.txt && grep -q "no obligation was generated" $out/check_$pid.txt; }; then
-  (cd $V && python3 check.py $pid --tier $tier > $out/check_$pid.txt 2>$out/check_$pid.err; echo "exit=$? (tier $tier, full check; native sweep flagged nothing the restricted runs could decide)" >> $out/check_$pid.txt)
-fi
- if [ -n "$hits" ]; then
-  (cd $V && VERIF_ONLY="$hits" python3 check.py $pid --tier $tier > $out/check_$pid.txt 2>$out/check_$pid.err; echo "exit=$? (tier $tier, restricted to the harnesses the native sweep flagged: $hits)" >> $out/check_$pid.txt)
-  if ! grep -q "^VIOLATION" $out/check_$pid.txt && [ "$tier" = quick ]; then
-    # the flagged harnesses may belong to the thorough tier only (larger bounds, slow ones)
-    (cd $V && VERIF_ONLY="$hits" python3 check.py $pid --tier thorough > $out/check_${pid}_thorough.txt 2>$out/check_${pid}_thorough.err; echo "exit=$? (tier thorough, restricted to the harnesses the native sweep flagged: $hits)" >> $out/check_${pid}_thorough.txt)
-    if grep -q "^VIOLATION" $out/check_${pid}_thorough.txt; then cp $out/check_${pid}_thorough.txt $out/check_$pid.txt; fi
-  fi
-fi
-if [ -z "$hits" ] || { ! grep -q "^VIOLATION" $out/check_$pid.txt && grep -q "no obligation was generated" $out/check_$pid.txt; }; then
-  (cd $V && python3 check.py $pid --tier $tier > $out/check_$pid.txt 2>$out/check_$pid.err; echo "exit=$? (tier $tier, full check; native sweep flagged nothing the restricted runs could decide)" >> $out/check_$pid.txt)
-fi
-bif [ -n "$hits" ]; then
-  (cd $V && VERIF_ONLY="$hits" python3 check.py $pid --tier $tier > $out/check_$pid.txt 2>$out/check_$pid.err; echo "exit=$? (tier $tier, restricted to the harnesses the native sweep flagged: $hits)" >> $out/check_$pid.txt)
-  if ! grep -q "^VIOLATION" $out/check_$pid.txt && [ "$tier" = quick ]; then
-    # the flagged harnesses may belong to the thorough tier only (larger bounds, slow ones)
-    (cd $V && VERIF_ONLY="$hits" python3 check.py $pid --tier thorough > $out/check_${pid}_thorough.txt 2>$out/check_${pid}_thorough.err; echo "exit=$? (tier thorough, restricted to the harnesses the native sweep flagged: $hits)" >> $out/check_${pid}_thorough.txt)
-    if grep -q "^VIOLATION" $out/check_${pid}_thorough.txt; then cp $out/check_${pid}_thorough.txt $out/check_$pid.txt; fi
-  fi
-fi
-if [ -z "$hits" ] || { ! grep -q "^VIOLATION" $out/check_$pid.txt && grep -q "no obligation was generated" $out/check_$pid.txt; }; then
-  (cd $V && python3 check.py $pid --tier $tier > $out/check_$pid.txt 2>$out/check_$pid.err; echo "exit=$? (tier $tier, full check; native sweep flagged nothing the restricted runs could decide)" >> $out/check_$pid.txt)
-fi
-oif [ -n "$hits" ]; then
-  (cd $V && VERIF_ONLY="$hits" python3 check.py $pid --tier $tier > $out/check_$pid.txt 2>$out/check_$pid.err; echo "exit=$? (tier $tier, restricted to the harnesses the native sweep flagged: $hits)" >> $out/check_$pid.txt)
-  if ! grep -q "^VIOLATION" $out/check_$pid.txt && [ "$tier" = quick ]; then
-    # the flagged harnesses may belong to the thorough tier only (larger bounds, slow ones)
-    (cd $V && VERIF_ONLY="$hits" python3 check.py $pid --tier thorough > $out/check_${pid}_thorough.txt 2>$out/check_${pid}_thorough.err; echo "exit=$? (tier thorough, restricted to the harnesses the native sweep flagged: $hits)" >> $out/check_${pid}_thorough.txt)
-    if grep -q "^VIOLATION" $out/check_${pid}_thorough.txt; then cp $out/check_${pid}_thorough.txt $out/check_$pid.txt; fi
-  fi
-fi
-if [ -z "$hits" ] || { ! grep -q "^VIOLATION" $out/check_$pid.txt && grep -q "no obligation was generated" $out/check_$pid.txt; }; then
-  (cd $V && python3 check.py $pid --tier $tier > $out/check_$pid.txt 2>$out/check_$pid.err; echo "exit=$? (tier $tier, full check; native sweep flagged nothing the restricted runs could decide)" >> $out/check_$pid.txt)
-fi
-dif [ -n "$hits" ]; then
-  (cd $V && VERIF_ONLY="$hits" python3 check.py $pid --tier $tier > $out/check_$pid.txt 2>$out/check_$pid.err; echo "exit=$? (tier $tier, restricted to the harnesses the native sweep flagged: $hits)" >> $out/check_$pid.txt)
-  if ! grep -q "^VIOLATION" $out/check_$pid.txt && [ "$tier" = quick ]; then
-    # the flagged harnesses may belong to the thorough tier only (larger bounds, slow ones)
-    (cd $V && VERIF_ONLY="$hits" python3 check.py $pid --tier thorough > $out/check_${pid}_thorough.txt 2>$out/check_${pid}_thorough.err; echo "exit=$? (tier thorough, restricted to the harnesses the native sweep flagged: $hits)" >> $out/check_${pid}_thorough.txt)
-    if grep -q "^VIOLATION" $out/check_${pid}_thorough.txt; then cp $out/check_${pid}_thorough.txt $out/check_$pid.txt; fi
-  fi
-fi
-if [ -z "$hits" ] || { ! grep -q "^VIOLATION" $out/check_$pid.txt && grep -q "no obligation was generated" $out/check_$pid.txt; }; then
-  (cd $V && python3 check.py $pid --tier $tier > $out/check_$pid.txt 2>$out/check_$pid.err; echo "exit=$? (tier $tier, full check; native sweep flagged nothing the restricted runs could decide)" >> $out/check_$pid.txt)
-fi
-iif [ -n "$hits" ]; then
-  (cd $V && VERIF_ONLY="$hits" python3 check.py $pid --tier $tier > $out/check_$pid.txt 2>$out/check_$pid.err; echo "exit=$? (tier $tier, restricted to the harnesses the native sweep flagged: $hits)" >> $out/check_$pid.txt)
-  if ! grep -q "^VIOLATION" $out/check_$pid.txt && [ "$tier" = quick ]; then
-    # the flagged harnesses may belong to the thorough tier only (larger bounds, slow ones)
-    (cd $V && VERIF_ONLY="$hits" python3 check.py $pid --tier thorough > $out/check_${pid}_thorough.txt 2>$out/check_${pid}_thorough.err; echo "exit=$? (tier thorough, restricted to the harnesses the native sweep flagged: $hits)" >> $out/check_${pid}_thorough.txt)
-    if grep -q "^VIOLATION" $out/check_${pid}_thorough.txt; then cp $out/check_${pid}_thorough.txt $out/check_$pid.txt; fi
-  fi
-fi
-if [ -z "$hits" ] || { ! grep -q "^VIOLATION" $out/check_$pid.txt && grep -q "no obligation was generated" $out/check_$pid.txt; }; then
-  (cd $V && python3 check.py $pid --tier $tier > $out/check_$pid.txt 2>$out/check_$pid.err; echo "exit=$? (tier $tier, full check; native sweep flagged nothing the restricted runs could decide)" >> $out/check_$pid.txt)
-fi
-eif [ -n "$hits" ]; then
-  (cd $V && VERIF_ONLY="$hits" python3 check.py $pid --tier $tier > $out/check_$pid.txt 2>$out/check_$pid.err; echo "exit=$? (tier $tier, restricted to the harnesses the native sweep flagged: $hits)" >> $out/check_$pid.txt)
-  if ! grep -q "^VIOLATION" $out/check_$pid.txt && [ "$tier" = quick ]; then
-    # the flagged harnesses may belong to the thorough tier only (larger bounds, slow ones)
-    (cd $V && VERIF_ONLY="$hits" python3 check.py $pid --tier thorough > $out/check_${pid}_thorough.txt 2>$out/check_${pid}_thorough.err; echo "exit=$? (tier thorough, restricted to the harnesses the native sweep flagged: $hits)" >> $out/check_${pid}_thorough.txt)
-    if grep -q "^VIOLATION" $out/check_${pid}_thorough.txt; then cp $out/check_${pid}_thorough.txt $out/check_$pid.txt; fi
-  fi
-fi
-if [ -z "$hits" ] || { ! grep -q "^VIOLATION" $out/check_$pid.txt && grep -q "no obligation was generated" $out/check_$pid.txt; }; then
-  (cd $V && python3 check.py $pid --tier $tier > $out/check_$pid.txt 2>$out/check_$pid.err; echo "exit=$? (tier $tier, full check; native sweep flagged nothing the restricted runs could decide)" >> $out/check_$pid.txt)
-fi
-sif [ -n "$hits" ]; then
-  (cd $V && VERIF_ONLY="$hits" python3 check.py $pid --tier $tier > $out/check_$pid.txt 2>$out/check_$pid.err; echo "exit=$? (tier $tier, restricted to the harnesses the native sweep flagged: $hits)" >> $out/check_$pid.txt)
-  if ! grep -q "^VIOLATION" $out/check_$pid.txt && [ "$tier" = quick ]; then
-    # the flagged harnesses may belong to the thorough tier only (larger bounds, slow ones)
-    (cd $V && VERIF_ONLY="$hits" python3 check.py $pid --tier thorough > $out/check_${pid}_thorough.txt 2>$out/check_${pid}_thorough.err; echo "exit=$? (tier thorough, restricted to the harnesses the native sweep flagged: $hits)" >> $out/check_${pid}_thorough.txt)
-    if grep -q "^VIOLATION" $out/check_${pid}_thorough.txt; then cp $out/check_${pid}_thorough.txt $out/check_$pid.txt; fi
-  fi
-fi
-if [ -z "$hits" ] || { ! grep -q "^VIOLATION" $out/check_$pid.txt && grep -q "no obligation was generated" $out/check_$pid.txt; }; then
-  (cd $V && python3 check.py $pid --tier $tier > $out/check_$pid.txt 2>$out/check_$pid.err; echo "exit=$? (tier $tier, full check; native sweep flagged nothing the restricted runs could decide)" >> $out/check_$pid.txt)
-fi
- if [ -n "$hits" ]; then
-  (cd $V && VERIF_ONLY="$hits" python3 check.py $pid --tier $tier > $out/check_$pid.txt 2>$out/check_$pid.err; echo "exit=$? (tier $tier, restricted to the harnesses the native sweep flagged: $hits)" >> $out/check_$pid.txt)
-  if ! grep -q "^VIOLATION" $out/check_$pid.txt && [ "$tier" = quick ]; then
-    # the flagged harnesses may belong to the thorough tier only (larger bounds, slow ones)
-    (cd $V && VERIF_ONLY="$hits" python3 check.py $pid --tier thorough > $out/check_${pid}_thorough.txt 2>$out/check_${pid}_thorough.err; echo "exit=$? (tier thorough, restricted to the harnesses the native sweep flagged: $hits)" >> $out/check_${pid}_thorough.txt)
-    if grep -q "^VIOLATION" $out/check_${pid}_thorough.txt; then cp $out/check_${pid}_thorough.txt $out/check_$pid.txt; fi
-  fi
-fi
-if [ -z "$hits" ] || { ! grep -q "^VIOLATION" $out/check_$pid.txt && grep -q "no obligation was generated" $out/check_$pid.txt; }; then
-  (cd $V && python3 check.py $pid --tier $tier > $out/check_$pid.txt 2>$out/check_$pid.err; echo "exit=$? (tier $tier, full check; native sweep flagged nothing the restricted runs could decide)" >> $out/check_$pid.txt)
-fi
-oif [ -n "$hits" ]; then
-  (cd $V && VERIF_ONLY="$hits" python3 check.py $pid --tier $tier > $out/check_$pid.txt 2>$out/check_$pid.err; echo "exit=$? (tier $tier, restricted to the harnesses the native sweep flagged: $hits)" >> $out/check_$pid.txt)
-  if ! grep -q "^VIOLATION" $out/check_$pid.txt && [ "$tier" = quick ]; then
-    # the flagged harnesses may belong to the thorough tier only (larger bounds, slow ones)
-    (cd $V && VERIF_ONLY="$hits" python3 check.py $pid --tier thorough > $out/check_${pid}_thorough.txt 2>$out/check_${pid}_thorough.err; echo "exit=$? (tier thorough, restricted to the harnesses the native sweep flagged: $hits)" >> $out/check_${pid}_thorough.txt)
-    if grep -q "^VIOLATION" $out/check_${pid}_thorough.txt; then cp $out/check_${pid}_thorough.txt $out/check_$pid.txt; fi
-  fi
-fi
-if [ -z "$hits" ] || { ! grep -q "^VIOLATION" $out/check_$pid.txt && grep -q "no obligation was generated" $out/check_$pid.txt; }; then
-  (cd $V && python3 check.py $pid --tier $tier > $out/check_$pid.txt 2>$out/check_$pid.err; echo "exit=$? (tier $tier, full check; native sweep flagged nothing the restricted runs could decide)" >> $out/check_$pid.txt)
-fi
-nif [ -n "$hits" ]; then
-  (cd $V && VERIF_ONLY="$hits" python3 check.py $pid --tier $tier > $out/check_$pid.txt 2>$out/check_$pid.err; echo "exit=$? (tier $tier, restricted to the harnesses the native sweep flagged: $hits)" >> $out/check_$pid.txt)
-  if ! grep -q "^VIOLATION" $out/check_$pid.txt && [ "$tier" = quick ]; then
-    # the flagged harnesses may belong to the thorough tier only (larger bounds, slow ones)
-    (cd $V && VERIF_ONLY="$hits" python3 check.py $pid --tier thorough > $out/check_${pid}_thorough.txt 2>$out/check_${pid}_thorough.err; echo "exit=$? (tier thorough, restricted to the harnesses the native sweep flagged: $hits)" >> $out/check_${pid}_thorough.txt)
-    if grep -q "^VIOLATION" $out/check_${pid}_thorough.txt; then cp $out/check_${pid}_thorough.txt $out/check_$pid.txt; fi
-  fi
-fi
-if [ -z "$hits" ] || { ! grep -q "^VIOLATION" $out/check_$pid.txt && grep -q "no obligation was generated" $out/check_$pid.txt; }; then
-  (cd $V && python3 check.py $pid --tier $tier > $out/check_$pid.txt 2>$out/check_$pid.err; echo "exit=$? (tier $tier, full check; native sweep flagged nothing the restricted runs could decide)" >> $out/check_$pid.txt)
-fi
- if [ -n "$hits" ]; then
-  (cd $V && VERIF_ONLY="$hits" python3 check.py $pid --tier $tier > $out/check_$pid.txt 2>$out/check_$pid.err; echo "exit=$? (tier $tier, restricted to the harnesses the native sweep flagged: $hits)" >> $out/check_$pid.txt)
-  if ! grep -q "^VIOLATION" $out/check_$pid.txt && [ "$tier" = quick ]; then
-    # the flagged harnesses may belong to the thorough tier only (larger bounds, slow ones)
-    (cd $V && VERIF_ONLY="$hits" python3 check.py $pid --tier thorough > $out/check_${pid}_thorough.txt 2>$out/check_${pid}_thorough.err; echo "exit=$? (tier thorough, restricted to the harnesses the native sweep flagged: $hits)" >> $out/check_${pid}_thorough.txt)
-    if grep -q "^VIOLATION" $out/check_${pid}_thorough.txt; then cp $out/check_${pid}_thorough.txt $out/check_$pid.txt; fi
-  fi
-fi
-if [ -z "$hits" ] || { ! grep -q "^VIOLATION" $out/check_$pid.txt && grep -q "no obligation was generated" $out/check_$pid.txt; }; then
-  (cd $V && python3 check.py $pid --tier $tier > $out/check_$pid.txt 2>$out/check_$pid.err; echo "exit=$? (tier $tier, full check; native sweep flagged nothing the restricted runs could decide)" >> $out/check_$pid.txt)
-fi
-tif [ -n "$hits" ]; then
-  (cd $V && VERIF_ONLY="$hits" python3 check.py $pid --tier $tier > $out/check_$pid.txt 2>$out/check_$pid.err; echo "exit=$? (tier $tier, restricted to the harnesses the native sweep flagged: $hits)" >> $out/check_$pid.txt)
-  if ! grep -q "^VIOLATION" $out/check_$pid.txt && [ "$tier" = quick ]; then
-    # the flagged harnesses may belong to the thorough tier only (larger bounds, slow ones)
-    (cd $V && VERIF_ONLY="$hits" python3 check.py $pid --tier thorough > $out/check_${pid}_thorough.txt 2>$out/check_${pid}_thorough.err; echo "exit=$? (tier thorough, restricted to the harnesses the native sweep flagged: $hits)" >> $out/check_${pid}_thorough.txt)
-    if grep -q "^VIOLATION" $out/check_${pid}_thorough.txt; then cp $out/check_${pid}_thorough.txt $out/check_$pid.txt; fi
-  fi
-fi
-if [ -z "$hits" ] || { ! grep -q "^VIOLATION" $out/check_$pid.txt && grep -q "no obligation was generated" $out/check_$pid.txt; }; then
-  (cd $V && python3 check.py $pid --tier $tier > $out/check_$pid.txt 2>$out/check_$pid.err; echo "exit=$? (tier $tier, full check; native sweep flagged nothing the restricted runs could decide)" >> $out/check_$pid.txt)
-fi
-hif [ -n "$hits" ]; then
-  (cd $V && VERIF_ONLY="$hits" python3 check.py $pid --tier $tier > $out/check_$pid.txt 2>$out/check_$pid.err; echo "exit=$? (tier $tier, restricted to the harnesses the native sweep flagged: $hits)" >> $out/check_$pid.txt)
-  if ! grep -q "^VIOLATION" $out/check_$pid.txt && [ "$tier" = quick ]; then
-    # the flagged harnesses may belong to the thorough tier only (larger bounds, slow ones)
-    (cd $V && VERIF_ONLY="$hits" python3 check.py $pid --tier thorough > $out/check_${pid}_thorough.txt 2>$out/check_${pid}_thorough.err; echo "exit=$? (tier thorough, restricted to the harnesses the native sweep flagged: $hits)" >> $out/check_${pid}_thorough.txt)
-    if grep -q "^VIOLATION" $out/check_${pid}_thorough.txt; then cp $out/check_${pid}_thorough.txt $out/check_$pid.txt; fi
-  fi
-fi
-if [ -z "$hits" ] || { ! grep -q "^VIOLATION" $out/check_$pid.txt && grep -q "no obligation was generated" $out/check_$pid.txt; }; then
-  (cd $V && python3 check.py $pid --tier $tier > $out/check_$pid.txt 2>$out/check_$pid.err; echo "exit=$? (tier $tier, full check; native sweep flagged nothing the restricted runs could decide)" >> $out/check_$pid.txt)
-fi
-eif [ -n "$hits" ]; then
-  (cd $V && VERIF_ONLY="$hits" python3 check.py $pid --tier $tier > $out/check_$pid.txt 2>$out/check_$pid.err; echo "exit=$? (tier $tier, restricted to the harnesses the native sweep flagged: $hits)" >> $out/check_$pid.txt)
-  if ! grep -q "^VIOLATION" $out/check_$pid.txt && [ "$tier" = quick ]; then
-    # the flagged harnesses may belong to the thorough tier only (larger bounds, slow ones)
-    (cd $V && VERIF_ONLY="$hits" python3 check.py $pid --tier thorough > $out/check_${pid}_thorough.txt 2>$out/check_${pid}_thorough.err; echo "exit=$? (tier thorough, restricted to the harnesses the native sweep flagged: $hits)" >> $out/check_${pid}_thorough.txt)
-    if grep -q "^VIOLATION" $out/check_${pid}_thorough.txt; then cp $out/check_${pid}_thorough.txt $out/check_$pid.txt; fi
-  fi
-fi
-if [ -z "$hits" ] || { ! grep -q "^VIOLATION" $out/check_$pid.txt && grep -q "no obligation was generated" $out/check_$pid.txt; }; then
-  (cd $V && python3 check.py $pid --tier $tier > $out/check_$pid.txt 2>$out/check_$pid.err; echo "exit=$? (tier $tier, full check; native sweep flagged nothing the restricted runs could decide)" >> $out/check_$pid.txt)
-fi
-
-if [ -n "$hits" ]; then
-  (cd $V && VERIF_ONLY="$hits" python3 check.py $pid --tier $tier > $out/check_$pid.txt 2>$out/check_$pid.err; echo "exit=$? (tier $tier, restricted to the harnesses the native sweep flagged: $hits)" >> $out/check_$pid.txt)
-  if ! grep -q "^VIOLATION" $out/check_$pid.txt && [ "$tier" = quick ]; then
-    # the flagged harnesses may belong to the thorough tier only (larger bounds, slow ones)
-    (cd $V && VERIF_ONLY="$hits" python3 check.py $pid --tier thorough > $out/check_${pid}_thorough.txt 2>$out/check_${pid}_thorough.err; echo "exit=$? (tier thorough, restricted to the harnesses the native sweep flagged: $hits)" >> $out/check_${pid}_thorough.txt)
-    if grep -q "^VIOLATION" $out/check_${pid}_thorough.txt; then cp $out/check_${pid}_thorough.txt $out/check_$pid.txt; fi
-  fi
-fi
-if [ -z "$hits" ] || { ! grep -q "^VIOLATION" $out/check_$pid.txt && grep -q "no obligation was generated" $out/check_$pid.txt; }; then
-  (cd $V && python3 check.py $pid --tier $tier > $out/check_$pid.txt 2>$out/check_$pid.err; echo "exit=$? (tier $tier, full check; native sweep flagged nothing the restricted runs could decide)" >> $out/check_$pid.txt)
-fi
-#if [ -n "$hits" ]; then
-  (cd $V && VERIF_ONLY="$hits" python3 check.py $pid --tier $tier > $out/check_$pid.txt 2>$out/check_$pid.err; echo "exit=$? (tier $tier, restricted to the harnesses the native sweep flagged: $hits)" >> $out/check_$pid.txt)
-  if ! grep -q "^VIOLATION" $out/check_$pid.txt && [ "$tier" = quick ]; then
-    # the flagged harnesses may belong to the thorough tier only (larger bounds, slow ones)
-    (cd $V && VERIF_ONLY="$hits" python3 check.py $pid --tier thorough > $out/check_${pid}_thorough.txt 2>$out/check_${pid}_thorough.err; echo "exit=$? (tier thorough, restricted to the harnesses the native sweep flagged: $hits)" >> $out/check_${pid}_thorough.txt)
-    if grep -q "^VIOLATION" $out/check_${pid}_thorough.txt; then cp $out/check_${pid}_thorough.txt $out/check_$pid.txt; fi
-  fi
-fi
-if [ -z "$hits" ] || { ! grep -q "^VIOLATION" $out/check_$pid.txt && grep -q "no obligation was generated" $out/check_$pid.txt; }; then
-  (cd $V && python3 check.py $pid --tier $tier > $out/check_$pid.txt 2>$out/check_$pid.err; echo "exit=$? (tier $tier, full check; native sweep flagged nothing the restricted runs could decide)" >> $out/check_$pid.txt)
-fi
- if [ -n "$hits" ]; then
-  (cd $V && VERIF_ONLY="$hits" python3 check.py $pid --tier $tier > $out/check_$pid.txt 2>$out/check_$pid.err; echo "exit=$? (tier $tier, restricted to the harnesses the native sweep flagged: $hits)" >> $out/check_$pid.txt)
-  if ! grep -q "^VIOLATION" $out/check_$pid.txt && [ "$tier" = quick ]; then
-    # the flagged harnesses may belong to the thorough tier only (larger bounds, slow ones)
-    (cd $V && VERIF_ONLY="$hits" python3 check.py $pid --tier thorough > $out/check_${pid}_thorough.txt 2>$out/check_${pid}_thorough.err; echo "exit=$? (tier thorough, restricted to the harnesses the native sweep flagged: $hits)" >> $out/check_${pid}_thorough.txt)
-    if grep -q "^VIOLATION" $out/check_${pid}_thorough.txt; then cp $out/check_${pid}_thorough.txt $out/check_$pid.txt; fi
-  fi
-fi
-if [ -z "$hits" ] || { ! grep -q "^VIOLATION" $out/check_$pid.txt && grep -q "no obligation was generated" $out/check_$pid.txt; }; then
-  (cd $V && python3 check.py $pid --tier $tier > $out/check_$pid.txt 2>$out/check_$pid.err; echo "exit=$? (tier $tier, full check; native sweep flagged nothing the restricted runs could decide)" >> $out/check_$pid.txt)
-fi
-cif [ -n "$hits" ]; then
-  (cd $V && VERIF_ONLY="$hits" python3 check.py $pid --tier $tier > $out/check_$pid.txt 2>$out/check_$pid.err; echo "exit=$? (tier $tier, restricted to the harnesses the native sweep flagged: $hits)" >> $out/check_$pid.txt)
-  if ! grep -q "^VIOLATION" $out/check_$pid.txt && [ "$tier" = quick ]; then
-    # the flagged harnesses may belong to the thorough tier only (larger bounds, slow ones)
-    (cd $V && VERIF_ONLY="$hits" python3 check.py $pid --tier thorough > $out/check_${pid}_thorough.txt 2>$out/check_${pid}_thorough.err; echo "exit=$? (tier thorough, restricted to the harnesses the native sweep flagged: $hits)" >> $out/check_${pid}_thorough.txt)
-    if grep -q "^VIOLATION" $out/check_${pid}_thorough.txt; then cp $out/check_${pid}_thorough.txt $out/check_$pid.txt; fi
-  fi
-fi
-if [ -z "$hits" ] || { ! grep -q "^VIOLATION" $out/check_$pid.txt && grep -q "no obligation was generated" $out/check_$pid.txt; }; then
-  (cd $V && python3 check.py $pid --tier $tier > $out/check_$pid.txt 2>$out/check_$pid.err; echo "exit=$? (tier $tier, full check; native sweep flagged nothing the restricted runs could decide)" >> $out/check_$pid.txt)
-fi
-hif [ -n "$hits" ]; then
-  (cd $V && VERIF_ONLY="$hits" python3 check.py $pid --tier $tier > $out/check_$pid.txt 2>$out/check_$pid.err; echo "exit=$? (tier $tier, restricted to the harnesses the native sweep flagged: $hits)" >> $out/check_$pid.txt)
-  if ! grep -q "^VIOLATION" $out/check_$pid.txt && [ "$tier" = quick ]; then
-    # the flagged harnesses may belong to the thorough tier only (larger bounds, slow ones)
-    (cd $V && VERIF_ONLY="$hits" python3 check.py $pid --tier thorough > $out/check_${pid}_thorough.txt 2>$out/check_${pid}_thorough.err; echo "exit=$? (tier thorough, restricted to the harnesses the native sweep flagged: $hits)" >> $out/check_${pid}_thorough.txt)
-    if grep -q "^VIOLATION" $out/check_${pid}_thorough.txt; then cp $out/check_${pid}_thorough.txt $out/check_$pid.txt; fi
-  fi
-fi
-if [ -z "$hits" ] || { ! grep -q "^VIOLATION" $out/check_$pid.txt && grep -q "no obligation was generated" $out/check_$pid.txt; }; then
-  (cd $V && python3 check.py $pid --tier $tier > $out/check_$pid.txt 2>$out/check_$pid.err; echo "exit=$? (tier $tier, full check; native sweep flagged nothing the restricted runs could decide)" >> $out/check_$pid.txt)
-fi
-aif [ -n "$hits" ]; then
-  (cd $V && VERIF_ONLY="$hits" python3 check.py $pid --tier $tier > $out/check_$pid.txt 2>$out/check_$pid.err; echo "exit=$? (tier $tier, restricted to the harnesses the native sweep flagged: $hits)" >> $out/check_$pid.txt)
-  if ! grep -q "^VIOLATION" $out/check_$pid.txt && [ "$tier" = quick ]; then
-    # the flagged harnesses may belong to the thorough tier only (larger bounds, slow ones)
-    (cd $V && VERIF_ONLY="$hits" python3 check.py $pid --tier thorough > $out/check_${pid}_thorough.txt 2>$out/check_${pid}_thorough.err; echo "exit=$? (tier thorough, restricted to the harnesses the native sweep flagged: $hits)" >> $out/check_${pid}_thorough.txt)
-    if grep -q "^VIOLATION" $out/check_${pid}_thorough.txt; then cp $out/check_${pid}_thorough.txt $out/check_$pid.txt; fi
-  fi
-fi
-if [ -z "$hits" ] || { ! grep -q "^VIOLATION" $out/check_$pid.txt && grep -q "no obligation was generated" $out/check_$pid.txt; }; then
-  (cd $V && python3 check.py $pid --tier $tier > $out/check_$pid.txt 2>$out/check_$pid.err; echo "exit=$? (tier $tier, full check; native sweep flagged nothing the restricted runs could decide)" >> $out/check_$pid.txt)
-fi
-nif [ -n "$hits" ]; then
-  (cd $V && VERIF_ONLY="$hits" python3 check.py $pid --tier $tier > $out/check_$pid.txt 2>$out/check_$pid.err; echo "exit=$? (tier $tier, restricted to the harnesses the native sweep flagged: $hits)" >> $out/check_$pid.txt)
-  if ! grep -q "^VIOLATION" $out/check_$pid.txt && [ "$tier" = quick ]; then
-    # the flagged harnesses may belong to the thorough tier only (larger bounds, slow ones)
-    (cd $V && VERIF_ONLY="$hits" python3 check.py $pid --tier thorough > $out/check_${pid}_thorough.txt 2>$out/check_${pid}_thorough.err; echo "exit=$? (tier thorough, restricted to the harnesses the native sweep flagged: $hits)" >> $out/check_${pid}_thorough.txt)
-    if grep -q "^VIOLATION" $out/check_${pid}_thorough.txt; then cp $out/check_${pid}_thorough.txt $out/check_$pid.txt; fi
-  fi
-fi
-if [ -z "$hits" ] || { ! grep -q "^VIOLATION" $out/check_$pid.txt && grep -q "no obligation was generated" $out/check_$pid.txt; }; then
-  (cd $V && python3 check.py $pid --tier $tier > $out/check_$pid.txt 2>$out/check_$pid.err; echo "exit=$? (tier $tier, full check; native sweep flagged nothing the restricted runs could decide)" >> $out/check_$pid.txt)
-fi
-gif [ -n "$hits" ]; then
-  (cd $V && VERIF_ONLY="$hits" python3 check.py $pid --tier $tier > $out/check_$pid.txt 2>$out/check_$pid.err; echo "exit=$? (tier $tier, restricted to the harnesses the native sweep flagged: $hits)" >> $out/check_$pid.txt)
-  if ! grep -q "^VIOLATION" $out/check_$pid.txt && [ "$tier" = quick ]; then
-    # the flagged harnesses may belong to the thorough tier only (larger bounds, slow ones)
-    (cd $V && VERIF_ONLY="$hits" python3 check.py $pid --tier thorough > $out/check_${pid}_thorough.txt 2>$out/check_${pid}_thorough.err; echo "exit=$? (tier thorough, restricted to the harnesses the native sweep flagged: $hits)" >> $out/check_${pid}_thorough.txt)
-    if grep -q "^VIOLATION" $out/check_${pid}_thorough.txt; then cp $out/check_${pid}_thorough.txt $out/check_$pid.txt; fi
-  fi
-fi
-if [ -z "$hits" ] || { ! grep -q "^VIOLATION" $out/check_$pid.txt && grep -q "no obligation was generated" $out/check_$pid.txt; }; then
-  (cd $V && python3 check.py $pid --tier $tier > $out/check_$pid.txt 2>$out/check_$pid.err; echo "exit=$? (tier $tier, full check; native sweep flagged nothing the restricted runs could decide)" >> $out/check_$pid.txt)
-fi
-eif [ -n "$hits" ]; then
-  (cd $V && VERIF_ONLY="$hits" python3 check.py $pid --tier $tier > $out/check_$pid.txt 2>$out/check_$pid.err; echo "exit=$? (tier $tier, restricted to the harnesses the native sweep flagged: $hits)" >> $out/check_$pid.txt)
-  if ! grep -q "^VIOLATION" $out/check_$pid.txt && [ "$tier" = quick ]; then
-    # the flagged harnesses may belong to the thorough tier only (larger bounds, slow ones)
-    (cd $V && VERIF_ONLY="$hits" python3 check.py $pid --tier thorough > $out/check_${pid}_thorough.txt 2>$out/check_${pid}_thorough.err; echo "exit=$? (tier thorough, restricted to the harnesses the native sweep flagged: $hits)" >> $out/check_${pid}_thorough.txt)
-    if grep -q "^VIOLATION" $out/check_${pid}_thorough.txt; then cp $out/check_${pid}_thorough.txt $out/check_$pid.txt; fi
-  fi
-fi
-if [ -z "$hits" ] || { ! grep -q "^VIOLATION" $out/check_$pid.txt && grep -q "no obligation was generated" $out/check_$pid.txt; }; then
-  (cd $V && python3 check.py $pid --tier $tier > $out/check_$pid.txt 2>$out/check_$pid.err; echo "exit=$? (tier $tier, full check; native sweep flagged nothing the restricted runs could decide)" >> $out/check_$pid.txt)
-fi
-dif [ -n "$hits" ]; then
-  (cd $V && VERIF_ONLY="$hits" python3 check.py $pid --tier $tier > $out/check_$pid.txt 2>$out/check_$pid.err; echo "exit=$? (tier $tier, restricted to the harnesses the native sweep flagged: $hits)" >> $out/check_$pid.txt)
-  if ! grep -q "^VIOLATION" $out/check_$pid.txt && [ "$tier" = quick ]; then
-    # the flagged harnesses may belong to the thorough tier only (larger bounds, slow ones)
-    (cd $V && VERIF_ONLY="$hits" python3 check.py $pid --tier thorough > $out/check_${pid}_thorough.txt 2>$out/check_${pid}_thorough.err; echo "exit=$? (tier thorough, restricted to the harnesses the native sweep flagged: $hits)" >> $out/check_${pid}_thorough.txt)
-    if grep -q "^VIOLATION" $out/check_${pid}_thorough.txt; then cp $out/check_${pid}_thorough.txt $out/check_$pid.txt; fi
-  fi
-fi
-if [ -z "$hits" ] || { ! grep -q "^VIOLATION" $out/check_$pid.txt && grep -q "no obligation was generated" $out/check_$pid.txt; }; then
-  (cd $V && python3 check.py $pid --tier $tier > $out/check_$pid.txt 2>$out/check_$pid.err; echo "exit=$? (tier $tier, full check; native sweep flagged nothing the restricted runs could decide)" >> $out/check_$pid.txt)
-fi
- if [ -n "$hits" ]; then
-  (cd $V && VERIF_ONLY="$hits" python3 check.py $pid --tier $tier > $out/check_$pid.txt 2>$out/check_$pid.err; echo "exit=$? (tier $tier, restricted to the harnesses the native sweep flagged: $hits)" >> $out/check_$pid.txt)
-  if ! grep -q "^VIOLATION" $out/check_$pid.txt && [ "$tier" = quick ]; then
-    # the flagged harnesses may belong to the thorough tier only (larger bounds, slow ones)
-    (cd $V && VERIF_ONLY="$hits" python3 check.py $pid --tier thorough > $out/check_${pid}_thorough.txt 2>$out/check_${pid}_thorough.err; echo "exit=$? (tier thorough, restricted to the harnesses the native sweep flagged: $hits)" >> $out/check_${pid}_thorough.txt)
-    if grep -q "^VIOLATION" $out/check_${pid}_thorough.txt; then cp $out/check_${pid}_thorough.txt $out/check_$pid.txt; fi
-  fi
-fi
-if [ -z "$hits" ] || { ! grep -q "^VIOLATION" $out/check_$pid.txt && grep -q "no obligation was generated" $out/check_$pid.txt; }; then
-  (cd $V && python3 check.py $pid --tier $tier > $out/check_$pid.txt 2>$out/check_$pid.err; echo "exit=$? (tier $tier, full check; native sweep flagged nothing the restricted runs could decide)" >> $out/check_$pid.txt)
-fi
-tif [ -n "$hits" ]; then
-  (cd $V && VERIF_ONLY="$hits" python3 check.py $pid --tier $tier > $out/check_$pid.txt 2>$out/check_$pid.err; echo "exit=$? (tier $tier, restricted to the harnesses the native sweep flagged: $hits)" >> $out/check_$pid.txt)
-  if ! grep -q "^VIOLATION" $out/check_$pid.txt && [ "$tier" = quick ]; then
-    # the flagged harnesses may belong to the thorough tier only (larger bounds, slow ones)
-    (cd $V && VERIF_ONLY="$hits" python3 check.py $pid --tier thorough > $out/check_${pid}_thorough.txt 2>$out/check_${pid}_thorough.err; echo "exit=$? (tier thorough, restricted to the harnesses the native sweep flagged: $hits)" >> $out/check_${pid}_thorough.txt)
-    if grep -q "^VIOLATION" $out/check_${pid}_thorough.txt; then cp $out/check_${pid}_thorough.txt $out/check_$pid.txt; fi
-  fi
-fi
-if [ -z "$hits" ] || { ! grep -q "^VIOLATION" $out/check_$pid.txt && grep -q "no obligation was generated" $out/check_$pid.txt; }; then
-  (cd $V && python3 check.py $pid --tier $tier > $out/check_$pid.txt 2>$out/check_$pid.err; echo "exit=$? (tier $tier, full check; native sweep flagged nothing the restricted runs could decide)" >> $out/check_$pid.txt)
-fi
-rif [ -n "$hits" ]; then
-  (cd $V && VERIF_ONLY="$hits" python3 check.py $pid --tier $tier > $out/check_$pid.txt 2>$out/check_$pid.err; echo "exit=$? (tier $tier, restricted to the harnesses the native sweep flagged: $hits)" >> $out/check_$pid.txt)
-  if ! grep -q "^VIOLATION" $out/check_$pid.txt && [ "$tier" = quick ]; then
-    # the flagged harnesses may belong to the thorough tier only (larger bounds, slow ones)
-    (cd $V && VERIF_ONLY="$hits" python3 check.py $pid --tier thorough > $out/check_${pid}_thorough.txt 2>$out/check_${pid}_thorough.err; echo "exit=$? (tier thorough, restricted to the harnesses the native sweep flagged: $hits)" >> $out/check_${pid}_thorough.txt)
-    if grep -q "^VIOLATION" $out/check_${pid}_thorough.txt; then cp $out/check_${pid}_thorough.txt $out/check_$pid.txt; fi
-  fi
-fi
-if [ -z "$hits" ] || { ! grep -q "^VIOLATION" $out/check_$pid.txt && grep -q "no obligation was generated" $out/check_$pid.txt; }; then
-  (cd $V && python3 check.py $pid --tier $tier > $out/check_$pid.txt 2>$out/check_$pid.err; echo "exit=$? (tier $tier, full check; native sweep flagged nothing the restricted runs could decide)" >> $out/check_$pid.txt)
-fi
-eif [ -n "$hits" ]; then
-  (cd $V && VERIF_ONLY="$hits" python3 check.py $pid --tier $tier > $out/check_$pid.txt 2>$out/check_$pid.err; echo "exit=$? (tier $tier, restricted to the harnesses the native sweep flagged: $hits)" >> $out/check_$pid.txt)
-  if ! grep -q "^VIOLATION" $out/check_$pid.txt && [ "$tier" = quick ]; then
-    # the flagged harnesses may belong to the thorough tier only (larger bounds, slow ones)
-    (cd $V && VERIF_ONLY="$hits" python3 check.py $pid --tier thorough > $out/check_${pid}_thorough.txt 2>$out/check_${pid}_thorough.err; echo "exit=$? (tier thorough, restricted to the harnesses the native sweep flagged: $hits)" >> $out/check_${pid}_thorough.txt)
-    if grep -q "^VIOLATION" $out/check_${pid}_thorough.txt; then cp $out/check_${pid}_thorough.txt $out/check_$pid.txt; fi
-  fi
-fi
-if [ -z "$hits" ] || { ! grep -q "^VIOLATION" $out/check_$pid.txt && grep -q "no obligation was generated" $out/check_$pid.txt; }; then
-  (cd $V && python3 check.py $pid --tier $tier > $out/check_$pid.txt 2>$out/check_$pid.err; echo "exit=$? (tier $tier, full check; native sweep flagged nothing the restricted runs could decide)" >> $out/check_$pid.txt)
-fi
-eif [ -n "$hits" ]; then
-  (cd $V && VERIF_ONLY="$hits" python3 check.py $pid --tier $tier > $out/check_$pid.txt 2>$out/check_$pid.err; echo "exit=$? (tier $tier, restricted to the harnesses the native sweep flagged: $hits)" >> $out/check_$pid.txt)
-  if ! grep -q "^VIOLATION" $out/check_$pid.txt && [ "$tier" = quick ]; then
-    # the flagged harnesses may belong to the thorough tier only (larger bounds, slow ones)
-    (cd $V && VERIF_ONLY="$hits" python3 check.py $pid --tier thorough > $out/check_${pid}_thorough.txt 2>$out/check_${pid}_thorough.err; echo "exit=$? (tier thorough, restricted to the harnesses the native sweep flagged: $hits)" >> $out/check_${pid}_thorough.txt)
-    if grep -q "^VIOLATION" $out/check_${pid}_thorough.txt; then cp $out/check_${pid}_thorough.txt $out/check_$pid.txt; fi
-  fi
-fi
-if [ -z "$hits" ] || { ! grep -q "^VIOLATION" $out/check_$pid.txt && grep -q "no obligation was generated" $out/check_$pid.txt; }; then
-  (cd $V && python3 check.py $pid --tier $tier > $out/check_$pid.txt 2>$out/check_$pid.err; echo "exit=$? (tier $tier, full check; native sweep flagged nothing the restricted runs could decide)" >> $out/check_$pid.txt)
-fi
- if [ -n "$hits" ]; then
-  (cd $V && VERIF_ONLY="$hits" python3 check.py $pid --tier $tier > $out/check_$pid.txt 2>$out/check_$pid.err; echo "exit=$? (tier $tier, restricted to the harnesses the native sweep flagged: $hits)" >> $out/check_$pid.txt)
-  if ! grep -q "^VIOLATION" $out/check_$pid.txt && [ "$tier" = quick ]; then
-    # the flagged harnesses may belong to the thorough tier only (larger bounds, slow ones)
-    (cd $V && VERIF_ONLY="$hits" python3 check.py $pid --tier thorough > $out/check_${pid}_thorough.txt 2>$out/check_${pid}_thorough.err; echo "exit=$? (tier thorough, restricted to the harnesses the native sweep flagged: $hits)" >> $out/check_${pid}_thorough.txt)
-    if grep -q "^VIOLATION" $out/check_${pid}_thorough.txt; then cp $out/check_${pid}_thorough.txt $out/check_$pid.txt; fi
-  fi
-fi
-if [ -z "$hits" ] || { ! grep -q "^VIOLATION" $out/check_$pid.txt && grep -q "no obligation was generated" $out/check_$pid.txt; }; then
-  (cd $V && python3 check.py $pid --tier $tier > $out/check_$pid.txt 2>$out/check_$pid.err; echo "exit=$? (tier $tier, full check; native sweep flagged nothing the restricted runs could decide)" >> $out/check_$pid.txt)
-fi
-(if [ -n "$hits" ]; then
-  (cd $V && VERIF_ONLY="$hits" python3 check.py $pid --tier $tier > $out/check_$pid.txt 2>$out/check_$pid.err; echo "exit=$? (tier $tier, restricted to the harnesses the native sweep flagged: $hits)" >> $out/check_$pid.txt)
-  if ! grep -q "^VIOLATION" $out/check_$pid.txt && [ "$tier" = quick ]; then
-    # the flagged harnesses may belong to the thorough tier only (larger bounds, slow ones)
-    (cd $V && VERIF_ONLY="$hits" python3 check.py $pid --tier thorough > $out/check_${pid}_thorough.txt 2>$out/check_${pid}_thorough.err; echo "exit=$? (tier thorough, restricted to the harnesses the native sweep flagged: $hits)" >> $out/check_${pid}_thorough.txt)
-    if grep -q "^VIOLATION" $out/check_${pid}_thorough.txt; then cp $out/check_${pid}_thorough.txt $out/check_$pid.txt; fi
-  fi
-fi
-if [ -z "$hits" ] || { ! grep -q "^VIOLATION" $out/check_$pid.txt && grep -q "no obligation was generated" $out/check_$pid.txt; }; then
-  (cd $V && python3 check.py $pid --tier $tier > $out/check_$pid.txt 2>$out/check_$pid.err; echo "exit=$? (tier $tier, full check; native sweep flagged nothing the restricted runs could decide)" >> $out/check_$pid.txt)
-fi
-sif [ -n "$hits" ]; then
-  (cd $V && VERIF_ONLY="$hits" python3 check.py $pid --tier $tier > $out/check_$pid.txt 2>$out/check_$pid.err; echo "exit=$? (tier $tier, restricted to the harnesses the native sweep flagged: $hits)" >> $out/check_$pid.txt)
-  if ! grep -q "^VIOLATION" $out/check_$pid.txt && [ "$tier" = quick ]; then
-    # the flagged harnesses may belong to the thorough tier only (larger bounds, slow ones)
-    (cd $V && VERIF_ONLY="$hits" python3 check.py $pid --tier thorough > $out/check_${pid}_thorough.txt 2>$out/check_${pid}_thorough.err; echo "exit=$? (tier thorough, restricted to the harnesses the native sweep flagged: $hits)" >> $out/check_${pid}_thorough.txt)
-    if grep -q "^VIOLATION" $out/check_${pid}_thorough.txt; then cp $out/check_${pid}_thorough.txt $out/check_$pid.txt; fi
-  fi
-fi
-if [ -z "$hits" ] || { ! grep -q "^VIOLATION" $out/check_$pid.txt && grep -q "no obligation was generated" $out/check_$pid.txt; }; then
-  (cd $V && python3 check.py $pid --tier $tier > $out/check_$pid.txt 2>$out/check_$pid.err; echo "exit=$? (tier $tier, full check; native sweep flagged nothing the restricted runs could decide)" >> $out/check_$pid.txt)
-fi
-eif [ -n "$hits" ]; then
-  (cd $V && VERIF_ONLY="$hits" python3 check.py $pid --tier $tier > $out/check_$pid.txt 2>$out/check_$pid.err; echo "exit=$? (tier $tier, restricted to the harnesses the native sweep flagged: $hits)" >> $out/check_$pid.txt)
-  if ! grep -q "^VIOLATION" $out/check_$pid.txt && [ "$tier" = quick ]; then
-    # the flagged harnesses may belong to the thorough tier only (larger bounds, slow ones)
-    (cd $V && VERIF_ONLY="$hits" python3 check.py $pid --tier thorough > $out/check_${pid}_thorough.txt 2>$out/check_${pid}_thorough.err; echo "exit=$? (tier thorough, restricted to the harnesses the native sweep flagged: $hits)" >> $out/check_${pid}_thorough.txt)
-    if grep -q "^VIOLATION" $out/check_${pid}_thorough.txt; then cp $out/check_${pid}_thorough.txt $out/check_$pid.txt; fi
-  fi
-fi
-if [ -z "$hits" ] || { ! grep -q "^VIOLATION" $out/check_$pid.txt && grep -q "no obligation was generated" $out/check_$pid.txt; }; then
-  (cd $V && python3 check.py $pid --tier $tier > $out/check_$pid.txt 2>$out/check_$pid.err; echo "exit=$? (tier $tier, full check; native sweep flagged nothing the restricted runs could decide)" >> $out/check_$pid.txt)
-fi
-cif [ -n "$hits" ]; then
-  (cd $V && VERIF_ONLY="$hits" python3 check.py $pid --tier $tier > $out/check_$pid.txt 2>$out/check_$pid.err; echo "exit=$? (tier $tier, restricted to the harnesses the native sweep flagged: $hits)" >> $out/check_$pid.txt)
-  if ! grep -q "^VIOLATION" $out/check_$pid.txt && [ "$tier" = quick ]; then
-    # the flagged harnesses may belong to the thorough tier only (larger bounds, slow ones)
-    (cd $V && VERIF_ONLY="$hits" python3 check.py $pid --tier thorough > $out/check_${pid}_thorough.txt 2>$out/check_${pid}_thorough.err; echo "exit=$? (tier thorough, restricted to the harnesses the native sweep flagged: $hits)" >> $out/check_${pid}_thorough.txt)
-    if grep -q "^VIOLATION" $out/check_${pid}_thorough.txt; then cp $out/check_${pid}_thorough.txt $out/check_$pid.txt; fi
-  fi
-fi
-if [ -z "$hits" ] || { ! grep -q "^VIOLATION" $out/check_$pid.txt && grep -q "no obligation was generated" $out/check_$pid.txt; }; then
-  (cd $V && python3 check.py $pid --tier $tier > $out/check_$pid.txt 2>$out/check_$pid.err; echo "exit=$? (tier $tier, full check; native sweep flagged nothing the restricted runs could decide)" >> $out/check_$pid.txt)
-fi
-oif [ -n "$hits" ]; then
-  (cd $V && VERIF_ONLY="$hits" python3 check.py $pid --tier $tier > $out/check_$pid.txt 2>$out/check_$pid.err; echo "exit=$? (tier $tier, restricted to the harnesses the native sweep flagged: $hits)" >> $out/check_$pid.txt)
-  if ! grep -q "^VIOLATION" $out/check_$pid.txt && [ "$tier" = quick ]; then
-    # the flagged harnesses may belong to the thorough tier only (larger bounds, slow ones)
-    (cd $V && VERIF_ONLY="$hits" python3 check.py $pid --tier thorough > $out/check_${pid}_thorough.txt 2>$out/check_${pid}_thorough.err; echo "exit=$? (tier thorough, restricted to the harnesses the native sweep flagged: $hits)" >> $out/check_${pid}_thorough.txt)
-    if grep -q "^VIOLATION" $out/check_${pid}_thorough.txt; then cp $out/check_${pid}_thorough.txt $out/check_$pid.txt; fi
-  fi
-fi
-if [ -z "$hits" ] || { ! grep -q "^VIOLATION" $out/check_$pid.txt && grep -q "no obligation was generated" $out/check_$pid.txt; }; then
-  (cd $V && python3 check.py $pid --tier $tier > $out/check_$pid.txt 2>$out/check_$pid.err; echo "exit=$? (tier $tier, full check; native sweep flagged nothing the restricted runs could decide)" >> $out/check_$pid.txt)
-fi
-nif [ -n "$hits" ]; then
-  (cd $V && VERIF_ONLY="$hits" python3 check.py $pid --tier $tier > $out/check_$pid.txt 2>$out/check_$pid.err; echo "exit=$? (tier $tier, restricted to the harnesses the native sweep flagged: $hits)" >> $out/check_$pid.txt)
-  if ! grep -q "^VIOLATION" $out/check_$pid.txt && [ "$tier" = quick ]; then
-    # the flagged harnesses may belong to the thorough tier only (larger bounds, slow ones)
-    (cd $V && VERIF_ONLY="$hits" python3 check.py $pid --tier thorough > $out/check_${pid}_thorough.txt 2>$out/check_${pid}_thorough.err; echo "exit=$? (tier thorough, restricted to the harnesses the native sweep flagged: $hits)" >> $out/check_${pid}_thorough.txt)
-    if grep -q "^VIOLATION" $out/check_${pid}_thorough.txt; then cp $out/check_${pid}_thorough.txt $out/check_$pid.txt; fi
-  fi
-fi
-if [ -z "$hits" ] || { ! grep -q "^VIOLATION" $out/check_$pid.txt && grep -q "no obligation was generated" $out/check_$pid.txt; }; then
-  (cd $V && python3 check.py $pid --tier $tier > $out/check_$pid.txt 2>$out/check_$pid.err; echo "exit=$? (tier $tier, full check; native sweep flagged nothing the restricted runs could decide)" >> $out/check_$pid.txt)
-fi
-dif [ -n "$hits" ]; then
-  (cd $V && VERIF_ONLY="$hits" python3 check.py $pid --tier $tier > $out/check_$pid.txt 2>$out/check_$pid.err; echo "exit=$? (tier $tier, restricted to the harnesses the native sweep flagged: $hits)" >> $out/check_$pid.txt)
-  if ! grep -q "^VIOLATION" $out/check_$pid.txt && [ "$tier" = quick ]; then
-    # the flagged harnesses may belong to the thorough tier only (larger bounds, slow ones)
-    (cd $V && VERIF_ONLY="$hits" python3 check.py $pid --tier thorough > $out/check_${pid}_thorough.txt 2>$out/check_${pid}_thorough.err; echo "exit=$? (tier thorough, restricted to the harnesses the native sweep flagged: $hits)" >> $out/check_${pid}_thorough.txt)
-    if grep -q "^VIOLATION" $out/check_${pid}_thorough.txt; then cp $out/check_${pid}_thorough.txt $out/check_$pid.txt; fi
-  fi
-fi
-if [ -z "$hits" ] || { ! grep -q "^VIOLATION" $out/check_$pid.txt && grep -q "no obligation was generated" $out/check_$pid.txt; }; then
-  (cd $V && python3 check.py $pid --tier $tier > $out/check_$pid.txt 2>$out/check_$pid.err; echo "exit=$? (tier $tier, full check; native sweep flagged nothing the restricted runs could decide)" >> $out/check_$pid.txt)
-fi
-sif [ -n "$hits" ]; then
-  (cd $V && VERIF_ONLY="$hits" python3 check.py $pid --tier $tier > $out/check_$pid.txt 2>$out/check_$pid.err; echo "exit=$? (tier $tier, restricted to the harnesses the native sweep flagged: $hits)" >> $out/check_$pid.txt)
-  if ! grep -q "^VIOLATION" $out/check_$pid.txt && [ "$tier" = quick ]; then
-    # the flagged harnesses may belong to the thorough tier only (larger bounds, slow ones)
-    (cd $V && VERIF_ONLY="$hits" python3 check.py $pid --tier thorough > $out/check_${pid}_thorough.txt 2>$out/check_${pid}_thorough.err; echo "exit=$? (tier thorough, restricted to the harnesses the native sweep flagged: $hits)" >> $out/check_${pid}_thorough.txt)
-    if grep -q "^VIOLATION" $out/check_${pid}_thorough.txt; then cp $out/check_${pid}_thorough.txt $out/check_$pid.txt; fi
-  fi
-fi
-if [ -z "$hits" ] || { ! grep -q "^VIOLATION" $out/check_$pid.txt && grep -q "no obligation was generated" $out/check_$pid.txt; }; then
-  (cd $V && python3 check.py $pid --tier $tier > $out/check_$pid.txt 2>$out/check_$pid.err; echo "exit=$? (tier $tier, full check; native sweep flagged nothing the restricted runs could decide)" >> $out/check_$pid.txt)
-fi
-)if [ -n "$hits" ]; then
-  (cd $V && VERIF_ONLY="$hits" python3 check.py $pid --tier $tier > $out/check_$pid.txt 2>$out/check_$pid.err; echo "exit=$? (tier $tier, restricted to the harnesses the native sweep flagged: $hits)" >> $out/check_$pid.txt)
-  if ! grep -q "^VIOLATION" $out/check_$pid.txt && [ "$tier" = quick ]; then
-    # the flagged harnesses may belong to the thorough tier only (larger bounds, slow ones)
-    (cd $V && VERIF_ONLY="$hits" python3 check.py $pid --tier thorough > $out/check_${pid}_thorough.txt 2>$out/check_${pid}_thorough.err; echo "exit=$? (tier thorough, restricted to the harnesses the native sweep flagged: $hits)" >> $out/check_${pid}_thorough.txt)
-    if grep -q "^VIOLATION" $out/check_${pid}_thorough.txt; then cp $out/check_${pid}_thorough.txt $out/check_$pid.txt; fi
-  fi
-fi
-if [ -z "$hits" ] || { ! grep -q "^VIOLATION" $out/check_$pid.txt && grep -q "no obligation was generated" $out/check_$pid.txt; }; then
-  (cd $V && python3 check.py $pid --tier $tier > $out/check_$pid.txt 2>$out/check_$pid.err; echo "exit=$? (tier $tier, full check; native sweep flagged nothing the restricted runs could decide)" >> $out/check_$pid.txt)
-fi
- if [ -n "$hits" ]; then
-  (cd $V && VERIF_ONLY="$hits" python3 check.py $pid --tier $tier > $out/check_$pid.txt 2>$out/check_$pid.err; echo "exit=$? (tier $tier, restricted to the harnesses the native sweep flagged: $hits)" >> $out/check_$pid.txt)
-  if ! grep -q "^VIOLATION" $out/check_$pid.txt && [ "$tier" = quick ]; then
-    # the flagged harnesses may belong to the thorough tier only (larger bounds, slow ones)
-    (cd $V && VERIF_ONLY="$hits" python3 check.py $pid --tier thorough > $out/check_${pid}_thorough.txt 2>$out/check_${pid}_thorough.err; echo "exit=$? (tier thorough, restricted to the harnesses the native sweep flagged: $hits)" >> $out/check_${pid}_thorough.txt)
-    if grep -q "^VIOLATION" $out/check_${pid}_thorough.txt; then cp $out/check_${pid}_thorough.txt $out/check_$pid.txt; fi
-  fi
-fi
-if [ -z "$hits" ] || { ! grep -q "^VIOLATION" $out/check_$pid.txt && grep -q "no obligation was generated" $out/check_$pid.txt; }; then
-  (cd $V && python3 check.py $pid --tier $tier > $out/check_$pid.txt 2>$out/check_$pid.err; echo "exit=$? (tier $tier, full check; native sweep flagged nothing the restricted runs could decide)" >> $out/check_$pid.txt)
-fi
-tif [ -n "$hits" ]; then
-  (cd $V && VERIF_ONLY="$hits" python3 check.py $pid --tier $tier > $out/check_$pid.txt 2>$out/check_$pid.err; echo "exit=$? (tier $tier, restricted to the harnesses the native sweep flagged: $hits)" >> $out/check_$pid.txt)
-  if ! grep -q "^VIOLATION" $out/check_$pid.txt && [ "$tier" = quick ]; then
-    # the flagged harnesses may belong to the thorough tier only (larger bounds, slow ones)
-    (cd $V && VERIF_ONLY="$hits" python3 check.py $pid --tier thorough > $out/check_${pid}_thorough.txt 2>$out/check_${pid}_thorough.err; echo "exit=$? (tier thorough, restricted to the harnesses the native sweep flagged: $hits)" >> $out/check_${pid}_thorough.txt)
-    if grep -q "^VIOLATION" $out/check_${pid}_thorough.txt; then cp $out/check_${pid}_thorough.txt $out/check_$pid.txt; fi
-  fi
-fi
-if [ -z "$hits" ] || { ! grep -q "^VIOLATION" $out/check_$pid.txt && grep -q "no obligation was generated" $out/check_$pid.txt; }; then
-  (cd $V && python3 check.py $pid --tier $tier > $out/check_$pid.txt 2>$out/check_$pid.err; echo "exit=$? (tier $tier, full check; native sweep flagged nothing the restricted runs could decide)" >> $out/check_$pid.txt)
-fi
-oif [ -n "$hits" ]; then
-  (cd $V && VERIF_ONLY="$hits" python3 check.py $pid --tier $tier > $out/check_$pid.txt 2>$out/check_$pid.err; echo "exit=$? (tier $tier, restricted to the harnesses the native sweep flagged: $hits)" >> $out/check_$pid.txt)
-  if ! grep -q "^VIOLATION" $out/check_$pid.txt && [ "$tier" = quick ]; then
-    # the flagged harnesses may belong to the thorough tier only (larger bounds, slow ones)
-    (cd $V && VERIF_ONLY="$hits" python3 check.py $pid --tier thorough > $out/check_${pid}_thorough.txt 2>$out/check_${pid}_thorough.err; echo "exit=$? (tier thorough, restricted to the harnesses the native sweep flagged: $hits)" >> $out/check_${pid}_thorough.txt)
-    if grep -q "^VIOLATION" $out/check_${pid}_thorough.txt; then cp $out/check_${pid}_thorough.txt $out/check_$pid.txt; fi
-  fi
-fi
-if [ -z "$hits" ] || { ! grep -q "^VIOLATION" $out/check_$pid.txt && grep -q "no obligation was generated" $out/check_$pid.txt; }; then
-  (cd $V && python3 check.py $pid --tier $tier > $out/check_$pid.txt 2>$out/check_$pid.err; echo "exit=$? (tier $tier, full check; native sweep flagged nothing the restricted runs could decide)" >> $out/check_$pid.txt)
-fi
- if [ -n "$hits" ]; then
-  (cd $V && VERIF_ONLY="$hits" python3 check.py $pid --tier $tier > $out/check_$pid.txt 2>$out/check_$pid.err; echo "exit=$? (tier $tier, restricted to the harnesses the native sweep flagged: $hits)" >> $out/check_$pid.txt)
-  if ! grep -q "^VIOLATION" $out/check_$pid.txt && [ "$tier" = quick ]; then
-    # the flagged harnesses may belong to the thorough tier only (larger bounds, slow ones)
-    (cd $V && VERIF_ONLY="$hits" python3 check.py $pid --tier thorough > $out/check_${pid}_thorough.txt 2>$out/check_${pid}_thorough.err; echo "exit=$? (tier thorough, restricted to the harnesses the native sweep flagged: $hits)" >> $out/check_${pid}_thorough.txt)
-    if grep -q "^VIOLATION" $out/check_${pid}_thorough.txt; then cp $out/check_${pid}_thorough.txt $out/check_$pid.txt; fi
-  fi
-fi
-if [ -z "$hits" ] || { ! grep -q "^VIOLATION" $out/check_$pid.txt && grep -q "no obligation was generated" $out/check_$pid.txt; }; then
-  (cd $V && python3 check.py $pid --tier $tier > $out/check_$pid.txt 2>$out/check_$pid.err; echo "exit=$? (tier $tier, full check; native sweep flagged nothing the restricted runs could decide)" >> $out/check_$pid.txt)
-fi
-lif [ -n "$hits" ]; then
-  (cd $V && VERIF_ONLY="$hits" python3 check.py $pid --tier $tier > $out/check_$pid.txt 2>$out/check_$pid.err; echo "exit=$? (tier $tier, restricted to the harnesses the native sweep flagged: $hits)" >> $out/check_$pid.txt)
-  if ! grep -q "^VIOLATION" $out/check_$pid.txt && [ "$tier" = quick ]; then
-    # the flagged harnesses may belong to the thorough tier only (larger bounds, slow ones)
-    (cd $V && VERIF_ONLY="$hits" python3 check.py $pid --tier thorough > $out/check_${pid}_thorough.txt 2>$out/check_${pid}_thorough.err; echo "exit=$? (tier thorough, restricted to the harnesses the native sweep flagged: $hits)" >> $out/check_${pid}_thorough.txt)
-    if grep -q "^VIOLATION" $out/check_${pid}_thorough.txt; then cp $out/check_${pid}_thorough.txt $out/check_$pid.txt; fi
-  fi
-fi
-if [ -z "$hits" ] || { ! grep -q "^VIOLATION" $out/check_$pid.txt && grep -q "no obligation was generated" $out/check_$pid.txt; }; then
-  (cd $V && python3 check.py $pid --tier $tier > $out/check_$pid.txt 2>$out/check_$pid.err; echo "exit=$? (tier $tier, full check; native sweep flagged nothing the restricted runs could decide)" >> $out/check_$pid.txt)
-fi
-eif [ -n "$hits" ]; then
-  (cd $V && VERIF_ONLY="$hits" python3 check.py $pid --tier $tier > $out/check_$pid.txt 2>$out/check_$pid.err; echo "exit=$? (tier $tier, restricted to the harnesses the native sweep flagged: $hits)" >> $out/check_$pid.txt)
-  if ! grep -q "^VIOLATION" $out/check_$pid.txt && [ "$tier" = quick ]; then
-    # the flagged harnesses may belong to the thorough tier only (larger bounds, slow ones)
-    (cd $V && VERIF_ONLY="$hits" python3 check.py $pid --tier thorough > $out/check_${pid}_thorough.txt 2>$out/check_${pid}_thorough.err; echo "exit=$? (tier thorough, restricted to the harnesses the native sweep flagged: $hits)" >> $out/check_${pid}_thorough.txt)
-    if grep -q "^VIOLATION" $out/check_${pid}_thorough.txt; then cp $out/check_${pid}_thorough.txt $out/check_$pid.txt; fi
-  fi
-fi
-if [ -z "$hits" ] || { ! grep -q "^VIOLATION" $out/check_$pid.txt && grep -q "no obligation was generated" $out/check_$pid.txt; }; then
-  (cd $V && python3 check.py $pid --tier $tier > $out/check_$pid.txt 2>$out/check_$pid.err; echo "exit=$? (tier $tier, full check; native sweep flagged nothing the restricted runs could decide)" >> $out/check_$pid.txt)
-fi
-aif [ -n "$hits" ]; then
-  (cd $V && VERIF_ONLY="$hits" python3 check.py $pid --tier $tier > $out/check_$pid.txt 2>$out/check_$pid.err; echo "exit=$? (tier $tier, restricted to the harnesses the native sweep flagged: $hits)" >> $out/check_$pid.txt)
-  if ! grep -q "^VIOLATION" $out/check_$pid.txt && [ "$tier" = quick ]; then
-    # the flagged harnesses may belong to the thorough tier only (larger bounds, slow ones)
-    (cd $V && VERIF_ONLY="$hits" python3 check.py $pid --tier thorough > $out/check_${pid}_thorough.txt 2>$out/check_${pid}_thorough.err; echo "exit=$? (tier thorough, restricted to the harnesses the native sweep flagged: $hits)" >> $out/check_${pid}_thorough.txt)
-    if grep -q "^VIOLATION" $out/check_${pid}_thorough.txt; then cp $out/check_${pid}_thorough.txt $out/check_$pid.txt; fi
-  fi
-fi
-if [ -z "$hits" ] || { ! grep -q "^VIOLATION" $out/check_$pid.txt && grep -q "no obligation was generated" $out/check_$pid.txt; }; then
-  (cd $V && python3 check.py $pid --tier $tier > $out/check_$pid.txt 2>$out/check_$pid.err; echo "exit=$? (tier $tier, full check; native sweep flagged nothing the restricted runs could decide)" >> $out/check_$pid.txt)
-fi
-rif [ -n "$hits" ]; then
-  (cd $V && VERIF_ONLY="$hits" python3 check.py $pid --tier $tier > $out/check_$pid.txt 2>$out/check_$pid.err; echo "exit=$? (tier $tier, restricted to the harnesses the native sweep flagged: $hits)" >> $out/check_$pid.txt)
-  if ! grep -q "^VIOLATION" $out/check_$pid.txt && [ "$tier" = quick ]; then
-    # the flagged harnesses may belong to the thorough tier only (larger bounds, slow ones)
-    (cd $V && VERIF_ONLY="$hits" python3 check.py $pid --tier thorough > $out/check_${pid}_thorough.txt 2>$out/check_${pid}_thorough.err; echo "exit=$? (tier thorough, restricted to the harnesses the native sweep flagged: $hits)" >> $out/check_${pid}_thorough.txt)
-    if grep -q "^VIOLATION" $out/check_${pid}_thorough.txt; then cp $out/check_${pid}_thorough.txt $out/check_$pid.txt; fi
-  fi
-fi
-if [ -z "$hits" ] || { ! grep -q "^VIOLATION" $out/check_$pid.txt && grep -q "no obligation was generated" $out/check_$pid.txt; }; then
-  (cd $V && python3 check.py $pid --tier $tier > $out/check_$pid.txt 2>$out/check_$pid.err; echo "exit=$? (tier $tier, full check; native sweep flagged nothing the restricted runs could decide)" >> $out/check_$pid.txt)
-fi
-nif [ -n "$hits" ]; then
-  (cd $V && VERIF_ONLY="$hits" python3 check.py $pid --tier $tier > $out/check_$pid.txt 2>$out/check_$pid.err; echo "exit=$? (tier $tier, restricted to the harnesses the native sweep flagged: $hits)" >> $out/check_$pid.txt)
-  if ! grep -q "^VIOLATION" $out/check_$pid.txt && [ "$tier" = quick ]; then
-    # the flagged harnesses may belong to the thorough tier only (larger bounds, slow ones)
-    (cd $V && VERIF_ONLY="$hits" python3 check.py $pid --tier thorough > $out/check_${pid}_thorough.txt 2>$out/check_${pid}_thorough.err; echo "exit=$? (tier thorough, restricted to the harnesses the native sweep flagged: $hits)" >> $out/check_${pid}_thorough.txt)
-    if grep -q "^VIOLATION" $out/check_${pid}_thorough.txt; then cp $out/check_${pid}_thorough.txt $out/check_$pid.txt; fi
-  fi
-fi
-if [ -z "$hits" ] || { ! grep -q "^VIOLATION" $out/check_$pid.txt && grep -q "no obligation was generated" $out/check_$pid.txt; }; then
-  (cd $V && python3 check.py $pid --tier $tier > $out/check_$pid.txt 2>$out/check_$pid.err; echo "exit=$? (tier $tier, full check; native sweep flagged nothing the restricted runs could decide)" >> $out/check_$pid.txt)
-fi
- if [ -n "$hits" ]; then
-  (cd $V && VERIF_ONLY="$hits" python3 check.py $pid --tier $tier > $out/check_$pid.txt 2>$out/check_$pid.err; echo "exit=$? (tier $tier, restricted to the harnesses the native sweep flagged: $hits)" >> $out/check_$pid.txt)
-  if ! grep -q "^VIOLATION" $out/check_$pid.txt && [ "$tier" = quick ]; then
-    # the flagged harnesses may belong to the thorough tier only (larger bounds, slow ones)
-    (cd $V && VERIF_ONLY="$hits" python3 check.py $pid --tier thorough > $out/check_${pid}_thorough.txt 2>$out/check_${pid}_thorough.err; echo "exit=$? (tier thorough, restricted to the harnesses the native sweep flagged: $hits)" >> $out/check_${pid}_thorough.txt)
-    if grep -q "^VIOLATION" $out/check_${pid}_thorough.txt; then cp $out/check_${pid}_thorough.txt $out/check_$pid.txt; fi
-  fi
-fi
-if [ -z "$hits" ] || { ! grep -q "^VIOLATION" $out/check_$pid.txt && grep -q "no obligation was generated" $out/check_$pid.txt; }; then
-  (cd $V && python3 check.py $pid --tier $tier > $out/check_$pid.txt 2>$out/check_$pid.err; echo "exit=$? (tier $tier, full check; native sweep flagged nothing the restricted runs could decide)" >> $out/check_$pid.txt)
-fi
-wif [ -n "$hits" ]; then
-  (cd $V && VERIF_ONLY="$hits" python3 check.py $pid --tier $tier > $out/check_$pid.txt 2>$out/check_$pid.err; echo "exit=$? (tier $tier, restricted to the harnesses the native sweep flagged: $hits)" >> $out/check_$pid.txt)
-  if ! grep -q "^VIOLATION" $out/check_$pid.txt && [ "$tier" = quick ]; then
-    # the flagged harnesses may belong to the thorough tier only (larger bounds, slow ones)
-    (cd $V && VERIF_ONLY="$hits" python3 check.py $pid --tier thorough > $out/check_${pid}_thorough.txt 2>$out/check_${pid}_thorough.err; echo "exit=$? (tier thorough, restricted to the harnesses the native sweep flagged: $hits)" >> $out/check_${pid}_thorough.txt)
-    if grep -q "^VIOLATION" $out/check_${pid}_thorough.txt; then cp $out/check_${pid}_thorough.txt $out/check_$pid.txt; fi
-  fi
-fi
-if [ -z "$hits" ] || { ! grep -q "^VIOLATION" $out/check_$pid.txt && grep -q "no obligation was generated" $out/check_$pid.txt; }; then
-  (cd $V && python3 check.py $pid --tier $tier > $out/check_$pid.txt 2>$out/check_$pid.err; echo "exit=$? (tier $tier, full check; native sweep flagged nothing the restricted runs could decide)" >> $out/check_$pid.txt)
-fi
-hif [ -n "$hits" ]; then
-  (cd $V && VERIF_ONLY="$hits" python3 check.py $pid --tier $tier > $out/check_$pid.txt 2>$out/check_$pid.err; echo "exit=$? (tier $tier, restricted to the harnesses the native sweep flagged: $hits)" >> $out/check_$pid.txt)
-  if ! grep -q "^VIOLATION" $out/check_$pid.txt && [ "$tier" = quick ]; then
-    # the flagged harnesses may belong to the thorough tier only (larger bounds, slow ones)
-    (cd $V && VERIF_ONLY="$hits" python3 check.py $pid --tier thorough > $out/check_${pid}_thorough.txt 2>$out/check_${pid}_thorough.err; echo "exit=$? (tier thorough, restricted to the harnesses the native sweep flagged: $hits)" >> $out/check_${pid}_thorough.txt)
-    if grep -q "^VIOLATION" $out/check_${pid}_thorough.txt; then cp $out/check_${pid}_thorough.txt $out/check_$pid.txt; fi
-  fi
-fi
-if [ -z "$hits" ] || { ! grep -q "^VIOLATION" $out/check_$pid.txt && grep -q "no obligation was generated" $out/check_$pid.txt; }; then
-  (cd $V && python3 check.py $pid --tier $tier > $out/check_$pid.txt 2>$out/check_$pid.err; echo "exit=$? (tier $tier, full check; native sweep flagged nothing the restricted runs could decide)" >> $out/check_$pid.txt)
-fi
-iif [ -n "$hits" ]; then
-  (cd $V && VERIF_ONLY="$hits" python3 check.py $pid --tier $tier > $out/check_$pid.txt 2>$out/check_$pid.err; echo "exit=$? (tier $tier, restricted to the harnesses the native sweep flagged: $hits)" >> $out/check_$pid.txt)
-  if ! grep -q "^VIOLATION" $out/check_$pid.txt && [ "$tier" = quick ]; then
-    # the flagged harnesses may belong to the thorough tier only (larger bounds, slow ones)
-    (cd $V && VERIF_ONLY="$hits" python3 check.py $pid --tier thorough > $out/check_${pid}_thorough.txt 2>$out/check_${pid}_thorough.err; echo "exit=$? (tier thorough, restricted to the harnesses the native sweep flagged: $hits)" >> $out/check_${pid}_thorough.txt)
-    if grep -q "^VIOLATION" $out/check_${pid}_thorough.txt; then cp $out/check_${pid}_thorough.txt $out/check_$pid.txt; fi
-  fi
-fi
-if [ -z "$hits" ] || { ! grep -q "^VIOLATION" $out/check_$pid.txt && grep -q "no obligation was generated" $out/check_$pid.txt; }; then
-  (cd $V && python3 check.py $pid --tier $tier > $out/check_$pid.txt 2>$out/check_$pid.err; echo "exit=$? (tier $tier, full check; native sweep flagged nothing the restricted runs could decide)" >> $out/check_$pid.txt)
-fi
-cif [ -n "$hits" ]; then
-  (cd $V && VERIF_ONLY="$hits" python3 check.py $pid --tier $tier > $out/check_$pid.txt 2>$out/check_$pid.err; echo "exit=$? (tier $tier, restricted to the harnesses the native sweep flagged: $hits)" >> $out/check_$pid.txt)
-  if ! grep -q "^VIOLATION" $out/check_$pid.txt && [ "$tier" = quick ]; then
-    # the flagged harnesses may belong to the thorough tier only (larger bounds, slow ones)
-    (cd $V && VERIF_ONLY="$hits" python3 check.py $pid --tier thorough > $out/check_${pid}_thorough.txt 2>$out/check_${pid}_thorough.err; echo "exit=$? (tier thorough, restricted to the harnesses the native sweep flagged: $hits)" >> $out/check_${pid}_thorough.txt)
-    if grep -q "^VIOLATION" $out/check_${pid}_thorough.txt; then cp $out/check_${pid}_thorough.txt $out/check_$pid.txt; fi
-  fi
-fi
-if [ -z "$hits" ] || { ! grep -q "^VIOLATION" $out/check_$pid.txt && grep -q "no obligation was generated" $out/check_$pid.txt; }; then
-  (cd $V && python3 check.py $pid --tier $tier > $out/check_$pid.txt 2>$out/check_$pid.err; echo "exit=$? (tier $tier, full check; native sweep flagged nothing the restricted runs could decide)" >> $out/check_$pid.txt)
-fi
-hif [ -n "$hits" ]; then
-  (cd $V && VERIF_ONLY="$hits" python3 check.py $pid --tier $tier > $out/check_$pid.txt 2>$out/check_$pid.err; echo "exit=$? (tier $tier, restricted to the harnesses the native sweep flagged: $hits)" >> $out/check_$pid.txt)
-  if ! grep -q "^VIOLATION" $out/check_$pid.txt && [ "$tier" = quick ]; then
-    # the flagged harnesses may belong to the thorough tier only (larger bounds, slow ones)
-    (cd $V && VERIF_ONLY="$hits" python3 check.py $pid --tier thorough > $out/check_${pid}_thorough.txt 2>$out/check_${pid}_thorough.err; echo "exit=$? (tier thorough, restricted to the harnesses the native sweep flagged: $hits)" >> $out/check_${pid}_thorough.txt)
-    if grep -q "^VIOLATION" $out/check_${pid}_thorough.txt; then cp $out/check_${pid}_thorough.txt $out/check_$pid.txt; fi
-  fi
-fi
-if [ -z "$hits" ] || { ! grep -q "^VIOLATION" $out/check_$pid.txt && grep -q "no obligation was generated" $out/check_$pid.txt; }; then
-  (cd $V && python3 check.py $pid --tier $tier > $out/check_$pid.txt 2>$out/check_$pid.err; echo "exit=$? (tier $tier, full check; native sweep flagged nothing the restricted runs could decide)" >> $out/check_$pid.txt)
-fi
- if [ -n "$hits" ]; then
-  (cd $V && VERIF_ONLY="$hits" python3 check.py $pid --tier $tier > $out/check_$pid.txt 2>$out/check_$pid.err; echo "exit=$? (tier $tier, restricted to the harnesses the native sweep flagged: $hits)" >> $out/check_$pid.txt)
-  if ! grep -q "^VIOLATION" $out/check_$pid.txt && [ "$tier" = quick ]; then
-    # the flagged harnesses may belong to the thorough tier only (larger bounds, slow ones)
-    (cd $V && VERIF_ONLY="$hits" python3 check.py $pid --tier thorough > $out/check_${pid}_thorough.txt 2>$out/check_${pid}_thorough.err; echo "exit=$? (tier thorough, restricted to the harnesses the native sweep flagged: $hits)" >> $out/check_${pid}_thorough.txt)
-    if grep -q "^VIOLATION" $out/check_${pid}_thorough.txt; then cp $out/check_${pid}_thorough.txt $out/check_$pid.txt; fi
-  fi
-fi
-if [ -z "$hits" ] || { ! grep -q "^VIOLATION" $out/check_$pid.txt && grep -q "no obligation was generated" $out/check_$pid.txt; }; then
-  (cd $V && python3 check.py $pid --tier $tier > $out/check_$pid.txt 2>$out/check_$pid.err; echo "exit=$? (tier $tier, full check; native sweep flagged nothing the restricted runs could decide)" >> $out/check_$pid.txt)
-fi
-hif [ -n "$hits" ]; then
-  (cd $V && VERIF_ONLY="$hits" python3 check.py $pid --tier $tier > $out/check_$pid.txt 2>$out/check_$pid.err; echo "exit=$? (tier $tier, restricted to the harnesses the native sweep flagged: $hits)" >> $out/check_$pid.txt)
-  if ! grep -q "^VIOLATION" $out/check_$pid.txt && [ "$tier" = quick ]; then
-    # the flagged harnesses may belong to the thorough tier only (larger bounds, slow ones)
-    (cd $V && VERIF_ONLY="$hits" python3 check.py $pid --tier thorough > $out/check_${pid}_thorough.txt 2>$out/check_${pid}_thorough.err; echo "exit=$? (tier thorough, restricted to the harnesses the native sweep flagged: $hits)" >> $out/check_${pid}_thorough.txt)
-    if grep -q "^VIOLATION" $out/check_${pid}_thorough.txt; then cp $out/check_${pid}_thorough.txt $out/check_$pid.txt; fi
-  fi
-fi
-if [ -z "$hits" ] || { ! grep -q "^VIOLATION" $out/check_$pid.txt && grep -q "no obligation was generated" $out/check_$pid.txt; }; then
-  (cd $V && python3 check.py $pid --tier $tier > $out/check_$pid.txt 2>$out/check_$pid.err; echo "exit=$? (tier $tier, full check; native sweep flagged nothing the restricted runs could decide)" >> $out/check_$pid.txt)
-fi
-aif [ -n "$hits" ]; then
-  (cd $V && VERIF_ONLY="$hits" python3 check.py $pid --tier $tier > $out/check_$pid.txt 2>$out/check_$pid.err; echo "exit=$? (tier $tier, restricted to the harnesses the native sweep flagged: $hits)" >> $out/check_$pid.txt)
-  if ! grep -q "^VIOLATION" $out/check_$pid.txt && [ "$tier" = quick ]; then
-    # the flagged harnesses may belong to the thorough tier only (larger bounds, slow ones)
-    (cd $V && VERIF_ONLY="$hits" python3 check.py $pid --tier thorough > $out/check_${pid}_thorough.txt 2>$out/check_${pid}_thorough.err; echo "exit=$? (tier thorough, restricted to the harnesses the native sweep flagged: $hits)" >> $out/check_${pid}_thorough.txt)
-    if grep -q "^VIOLATION" $out/check_${pid}_thorough.txt; then cp $out/check_${pid}_thorough.txt $out/check_$pid.txt; fi
-  fi
-fi
-if [ -z "$hits" ] || { ! grep -q "^VIOLATION" $out/check_$pid.txt && grep -q "no obligation was generated" $out/check_$pid.txt; }; then
-  (cd $V && python3 check.py $pid --tier $tier > $out/check_$pid.txt 2>$out/check_$pid.err; echo "exit=$? (tier $tier, full check; native sweep flagged nothing the restricted runs could decide)" >> $out/check_$pid.txt)
-fi
-rif [ -n "$hits" ]; then
-  (cd $V && VERIF_ONLY="$hits" python3 check.py $pid --tier $tier > $out/check_$pid.txt 2>$out/check_$pid.err; echo "exit=$? (tier $tier, restricted to the harnesses the native sweep flagged: $hits)" >> $out/check_$pid.txt)
-  if ! grep -q "^VIOLATION" $out/check_$pid.txt && [ "$tier" = quick ]; then
-    # the flagged harnesses may belong to the thorough tier only (larger bounds, slow ones)
-    (cd $V && VERIF_ONLY="$hits" python3 check.py $pid --tier thorough > $out/check_${pid}_thorough.txt 2>$out/check_${pid}_thorough.err; echo "exit=$? (tier thorough, restricted to the harnesses the native sweep flagged: $hits)" >> $out/check_${pid}_thorough.txt)
-    if grep -q "^VIOLATION" $out/check_${pid}_thorough.txt; then cp $out/check_${pid}_thorough.txt $out/check_$pid.txt; fi
-  fi
-fi
-if [ -z "$hits" ] || { ! grep -q "^VIOLATION" $out/check_$pid.txt && grep -q "no obligation was generated" $out/check_$pid.txt; }; then
-  (cd $V && python3 check.py $pid --tier $tier > $out/check_$pid.txt 2>$out/check_$pid.err; echo "exit=$? (tier $tier, full check; native sweep flagged nothing the restricted runs could decide)" >> $out/check_$pid.txt)
-fi
-nif [ -n "$hits" ]; then
-  (cd $V && VERIF_ONLY="$hits" python3 check.py $pid --tier $tier > $out/check_$pid.txt 2>$out/check_$pid.err; echo "exit=$? (tier $tier, restricted to the harnesses the native sweep flagged: $hits)" >> $out/check_$pid.txt)
-  if ! grep -q "^VIOLATION" $out/check_$pid.txt && [ "$tier" = quick ]; then
-    # the flagged harnesses may belong to the thorough tier only (larger bounds, slow ones)
-    (cd $V && VERIF_ONLY="$hits" python3 check.py $pid --tier thorough > $out/check_${pid}_thorough.txt 2>$out/check_${pid}_thorough.err; echo "exit=$? (tier thorough, restricted to the harnesses the native sweep flagged: $hits)" >> $out/check_${pid}_thorough.txt)
-    if grep -q "^VIOLATION" $out/check_${pid}_thorough.txt; then cp $out/check_${pid}_thorough.txt $out/check_$pid.txt; fi
-  fi
-fi
-if [ -z "$hits" ] || { ! grep -q "^VIOLATION" $out/check_$pid.txt && grep -q "no obligation was generated" $out/check_$pid.txt; }; then
-  (cd $V && python3 check.py $pid --tier $tier > $out/check_$pid.txt 2>$out/check_$pid.err; echo "exit=$? (tier $tier, full check; native sweep flagged nothing the restricted runs could decide)" >> $out/check_$pid.txt)
-fi
-eif [ -n "$hits" ]; then
-  (cd $V && VERIF_ONLY="$hits" python3 check.py $pid --tier $tier > $out/check_$pid.txt 2>$out/check_$pid.err; echo "exit=$? (tier $tier, restricted to the harnesses the native sweep flagged: $hits)" >> $out/check_$pid.txt)
-  if ! grep -q "^VIOLATION" $out/check_$pid.txt && [ "$tier" = quick ]; then
-    # the flagged harnesses may belong to the thorough tier only (larger bounds, slow ones)
-    (cd $V && VERIF_ONLY="$hits" python3 check.py $pid --tier thorough > $out/check_${pid}_thorough.txt 2>$out/check_${pid}_thorough.err; echo "exit=$? (tier thorough, restricted to the harnesses the native sweep flagged: $hits)" >> $out/check_${pid}_thorough.txt)
-    if grep -q "^VIOLATION" $out/check_${pid}_thorough.txt; then cp $out/check_${pid}_thorough.txt $out/check_$pid.txt; fi
-  fi
-fi
-if [ -z "$hits" ] || { ! grep -q "^VIOLATION" $out/check_$pid.txt && grep -q "no obligation was generated" $out/check_$pid.txt; }; then
-  (cd $V && python3 check.py $pid --tier $tier > $out/check_$pid.txt 2>$out/check_$pid.err; echo "exit=$? (tier $tier, full check; native sweep flagged nothing the restricted runs could decide)" >> $out/check_$pid.txt)
-fi
-sif [ -n "$hits" ]; then
-  (cd $V && VERIF_ONLY="$hits" python3 check.py $pid --tier $tier > $out/check_$pid.txt 2>$out/check_$pid.err; echo "exit=$? (tier $tier, restricted to the harnesses the native sweep flagged: $hits)" >> $out/check_$pid.txt)
-  if ! grep -q "^VIOLATION" $out/check_$pid.txt && [ "$tier" = quick ]; then
-    # the flagged harnesses may belong to the thorough tier only (larger bounds, slow ones)
-    (cd $V && VERIF_ONLY="$hits" python3 check.py $pid --tier thorough > $out/check_${pid}_thorough.txt 2>$out/check_${pid}_thorough.err; echo "exit=$? (tier thorough, restricted to the harnesses the native sweep flagged: $hits)" >> $out/check_${pid}_thorough.txt)
-    if grep -q "^VIOLATION" $out/check_${pid}_thorough.txt; then cp $out/check_${pid}_thorough.txt $out/check_$pid.txt; fi
-  fi
-fi
-if [ -z "$hits" ] || { ! grep -q "^VIOLATION" $out/check_$pid.txt && grep -q "no obligation was generated" $out/check_$pid.txt; }; then
-  (cd $V && python3 check.py $pid --tier $tier > $out/check_$pid.txt 2>$out/check_$pid.err; echo "exit=$? (tier $tier, full check; native sweep flagged nothing the restricted runs could decide)" >> $out/check_$pid.txt)
-fi
-sif [ -n "$hits" ]; then
-  (cd $V && VERIF_ONLY="$hits" python3 check.py $pid --tier $tier > $out/check_$pid.txt 2>$out/check_$pid.err; echo "exit=$? (tier $tier, restricted to the harnesses the native sweep flagged: $hits)" >> $out/check_$pid.txt)
-  if ! grep -q "^VIOLATION" $out/check_$pid.txt && [ "$tier" = quick ]; then
-    # the flagged harnesses may belong to the thorough tier only (larger bounds, slow ones)
-    (cd $V && VERIF_ONLY="$hits" python3 check.py $pid --tier thorough > $out/check_${pid}_thorough.txt 2>$out/check_${pid}_thorough.err; echo "exit=$? (tier thorough, restricted to the harnesses the native sweep flagged: $hits)" >> $out/check_${pid}_thorough.txt)
-    if grep -q "^VIOLATION" $out/check_${pid}_thorough.txt; then cp $out/check_${pid}_thorough.txt $out/check_$pid.txt; fi
-  fi
-fi
-if [ -z "$hits" ] || { ! grep -q "^VIOLATION" $out/check_$pid.txt && grep -q "no obligation was generated" $out/check_$pid.txt; }; then
-  (cd $V && python3 check.py $pid --tier $tier > $out/check_$pid.txt 2>$out/check_$pid.err; echo "exit=$? (tier $tier, full check; native sweep flagged nothing the restricted runs could decide)" >> $out/check_$pid.txt)
-fi
-eif [ -n "$hits" ]; then
-  (cd $V && VERIF_ONLY="$hits" python3 check.py $pid --tier $tier > $out/check_$pid.txt 2>$out/check_$pid.err; echo "exit=$? (tier $tier, restricted to the harnesses the native sweep flagged: $hits)" >> $out/check_$pid.txt)
-  if ! grep -q "^VIOLATION" $out/check_$pid.txt && [ "$tier" = quick ]; then
-    # the flagged harnesses may belong to the thorough tier only (larger bounds, slow ones)
-    (cd $V && VERIF_ONLY="$hits" python3 check.py $pid --tier thorough > $out/check_${pid}_thorough.txt 2>$out/check_${pid}_thorough.err; echo "exit=$? (tier thorough, restricted to the harnesses the native sweep flagged: $hits)" >> $out/check_${pid}_thorough.txt)
-    if grep -q "^VIOLATION" $out/check_${pid}_thorough.txt; then cp $out/check_${pid}_thorough.txt $out/check_$pid.txt; fi
-  fi
-fi
-if [ -z "$hits" ] || { ! grep -q "^VIOLATION" $out/check_$pid.txt && grep -q "no obligation was generated" $out/check_$pid.txt; }; then
-  (cd $V && python3 check.py $pid --tier $tier > $out/check_$pid.txt 2>$out/check_$pid.err; echo "exit=$? (tier $tier, full check; native sweep flagged nothing the restricted runs could decide)" >> $out/check_$pid.txt)
-fi
-sif [ -n "$hits" ]; then
-  (cd $V && VERIF_ONLY="$hits" python3 check.py $pid --tier $tier > $out/check_$pid.txt 2>$out/check_$pid.err; echo "exit=$? (tier $tier, restricted to the harnesses the native sweep flagged: $hits)" >> $out/check_$pid.txt)
-  if ! grep -q "^VIOLATION" $out/check_$pid.txt && [ "$tier" = quick ]; then
-    # the flagged harnesses may belong to the thorough tier only (larger bounds, slow ones)
-    (cd $V && VERIF_ONLY="$hits" python3 check.py $pid --tier thorough > $out/check_${pid}_thorough.txt 2>$out/check_${pid}_thorough.err; echo "exit=$? (tier thorough, restricted to the harnesses the native sweep flagged: $hits)" >> $out/check_${pid}_thorough.txt)
-    if grep -q "^VIOLATION" $out/check_${pid}_thorough.txt; then cp $out/check_${pid}_thorough.txt $out/check_$pid.txt; fi
-  fi
-fi
-if [ -z "$hits" ] || { ! grep -q "^VIOLATION" $out/check_$pid.txt && grep -q "no obligation was generated" $out/check_$pid.txt; }; then
-  (cd $V && python3 check.py $pid --tier $tier > $out/check_$pid.txt 2>$out/check_$pid.err; echo "exit=$? (tier $tier, full check; native sweep flagged nothing the restricted runs could decide)" >> $out/check_$pid.txt)
-fi
- if [ -n "$hits" ]; then
-  (cd $V && VERIF_ONLY="$hits" python3 check.py $pid --tier $tier > $out/check_$pid.txt 2>$out/check_$pid.err; echo "exit=$? (tier $tier, restricted to the harnesses the native sweep flagged: $hits)" >> $out/check_$pid.txt)
-  if ! grep -q "^VIOLATION" $out/check_$pid.txt && [ "$tier" = quick ]; then
-    # the flagged harnesses may belong to the thorough tier only (larger bounds, slow ones)
-    (cd $V && VERIF_ONLY="$hits" python3 check.py $pid --tier thorough > $out/check_${pid}_thorough.txt 2>$out/check_${pid}_thorough.err; echo "exit=$? (tier thorough, restricted to the harnesses the native sweep flagged: $hits)" >> $out/check_${pid}_thorough.txt)
-    if grep -q "^VIOLATION" $out/check_${pid}_thorough.txt; then cp $out/check_${pid}_thorough.txt $out/check_$pid.txt; fi
-  fi
-fi
-if [ -z "$hits" ] || { ! grep -q "^VIOLATION" $out/check_$pid.txt && grep -q "no obligation was generated" $out/check_$pid.txt; }; then
-  (cd $V && python3 check.py $pid --tier $tier > $out/check_$pid.txt 2>$out/check_$pid.err; echo "exit=$? (tier $tier, full check; native sweep flagged nothing the restricted runs could decide)" >> $out/check_$pid.txt)
-fi
-aif [ -n "$hits" ]; then
-  (cd $V && VERIF_ONLY="$hits" python3 check.py $pid --tier $tier > $out/check_$pid.txt 2>$out/check_$pid.err; echo "exit=$? (tier $tier, restricted to the harnesses the native sweep flagged: $hits)" >> $out/check_$pid.txt)
-  if ! grep -q "^VIOLATION" $out/check_$pid.txt && [ "$tier" = quick ]; then
-    # the flagged harnesses may belong to the thorough tier only (larger bounds, slow ones)
-    (cd $V && VERIF_ONLY="$hits" python3 check.py $pid --tier thorough > $out/check_${pid}_thorough.txt 2>$out/check_${pid}_thorough.err; echo "exit=$? (tier thorough, restricted to the harnesses the native sweep flagged: $hits)" >> $out/check_${pid}_thorough.txt)
-    if grep -q "^VIOLATION" $out/check_${pid}_thorough.txt; then cp $out/check_${pid}_thorough.txt $out/check_$pid.txt; fi
-  fi
-fi
-if [ -z "$hits" ] || { ! grep -q "^VIOLATION" $out/check_$pid.txt && grep -q "no obligation was generated" $out/check_$pid.txt; }; then
-  (cd $V && python3 check.py $pid --tier $tier > $out/check_$pid.txt 2>$out/check_$pid.err; echo "exit=$? (tier $tier, full check; native sweep flagged nothing the restricted runs could decide)" >> $out/check_$pid.txt)
-fi
-rif [ -n "$hits" ]; then
-  (cd $V && VERIF_ONLY="$hits" python3 check.py $pid --tier $tier > $out/check_$pid.txt 2>$out/check_$pid.err; echo "exit=$? (tier $tier, restricted to the harnesses the native sweep flagged: $hits)" >> $out/check_$pid.txt)
-  if ! grep -q "^VIOLATION" $out/check_$pid.txt && [ "$tier" = quick ]; then
-    # the flagged harnesses may belong to the thorough tier only (larger bounds, slow ones)
-    (cd $V && VERIF_ONLY="$hits" python3 check.py $pid --tier thorough > $out/check_${pid}_thorough.txt 2>$out/check_${pid}_thorough.err; echo "exit=$? (tier thorough, restricted to the harnesses the native sweep flagged: $hits)" >> $out/check_${pid}_thorough.txt)
-    if grep -q "^VIOLATION" $out/check_${pid}_thorough.txt; then cp $out/check_${pid}_thorough.txt $out/check_$pid.txt; fi
-  fi
-fi
-if [ -z "$hits" ] || { ! grep -q "^VIOLATION" $out/check_$pid.txt && grep -q "no obligation was generated" $out/check_$pid.txt; }; then
-  (cd $V && python3 check.py $pid --tier $tier > $out/check_$pid.txt 2>$out/check_$pid.err; echo "exit=$? (tier $tier, full check; native sweep flagged nothing the restricted runs could decide)" >> $out/check_$pid.txt)
-fi
-eif [ -n "$hits" ]; then
-  (cd $V && VERIF_ONLY="$hits" python3 check.py $pid --tier $tier > $out/check_$pid.txt 2>$out/check_$pid.err; echo "exit=$? (tier $tier, restricted to the harnesses the native sweep flagged: $hits)" >> $out/check_$pid.txt)
-  if ! grep -q "^VIOLATION" $out/check_$pid.txt && [ "$tier" = quick ]; then
-    # the flagged harnesses may belong to the thorough tier only (larger bounds, slow ones)
-    (cd $V && VERIF_ONLY="$hits" python3 check.py $pid --tier thorough > $out/check_${pid}_thorough.txt 2>$out/check_${pid}_thorough.err; echo "exit=$? (tier thorough, restricted to the harnesses the native sweep flagged: $hits)" >> $out/check_${pid}_thorough.txt)
-    if grep -q "^VIOLATION" $out/check_${pid}_thorough.txt; then cp $out/check_${pid}_thorough.txt $out/check_$pid.txt; fi
-  fi
-fi
-if [ -z "$hits" ] || { ! grep -q "^VIOLATION" $out/check_$pid.txt && grep -q "no obligation was generated" $out/check_$pid.txt; }; then
-  (cd $V && python3 check.py $pid --tier $tier > $out/check_$pid.txt 2>$out/check_$pid.err; echo "exit=$? (tier $tier, full check; native sweep flagged nothing the restricted runs could decide)" >> $out/check_$pid.txt)
-fi
- if [ -n "$hits" ]; then
-  (cd $V && VERIF_ONLY="$hits" python3 check.py $pid --tier $tier > $out/check_$pid.txt 2>$out/check_$pid.err; echo "exit=$? (tier $tier, restricted to the harnesses the native sweep flagged: $hits)" >> $out/check_$pid.txt)
-  if ! grep -q "^VIOLATION" $out/check_$pid.txt && [ "$tier" = quick ]; then
-    # the flagged harnesses may belong to the thorough tier only (larger bounds, slow ones)
-    (cd $V && VERIF_ONLY="$hits" python3 check.py $pid --tier thorough > $out/check_${pid}_thorough.txt 2>$out/check_${pid}_thorough.err; echo "exit=$? (tier thorough, restricted to the harnesses the native sweep flagged: $hits)" >> $out/check_${pid}_thorough.txt)
-    if grep -q "^VIOLATION" $out/check_${pid}_thorough.txt; then cp $out/check_${pid}_thorough.txt $out/check_$pid.txt; fi
-  fi
-fi
-if [ -z "$hits" ] || { ! grep -q "^VIOLATION" $out/check_$pid.txt && grep -q "no obligation was generated" $out/check_$pid.txt; }; then
-  (cd $V && python3 check.py $pid --tier $tier > $out/check_$pid.txt 2>$out/check_$pid.err; echo "exit=$? (tier $tier, full check; native sweep flagged nothing the restricted runs could decide)" >> $out/check_$pid.txt)
-fi
-aif [ -n "$hits" ]; then
-  (cd $V && VERIF_ONLY="$hits" python3 check.py $pid --tier $tier > $out/check_$pid.txt 2>$out/check_$pid.err; echo "exit=$? (tier $tier, restricted to the harnesses the native sweep flagged: $hits)" >> $out/check_$pid.txt)
-  if ! grep -q "^VIOLATION" $out/check_$pid.txt && [ "$tier" = quick ]; then
-    # the flagged harnesses may belong to the thorough tier only (larger bounds, slow ones)
-    (cd $V && VERIF_ONLY="$hits" python3 check.py $pid --tier thorough > $out/check_${pid}_thorough.txt 2>$out/check_${pid}_thorough.err; echo "exit=$? (tier thorough, restricted to the harnesses the native sweep flagged: $hits)" >> $out/check_${pid}_thorough.txt)
-    if grep -q "^VIOLATION" $out/check_${pid}_thorough.txt; then cp $out/check_${pid}_thorough.txt $out/check_$pid.txt; fi
-  fi
-fi
-if [ -z "$hits" ] || { ! grep -q "^VIOLATION" $out/check_$pid.txt && grep -q "no obligation was generated" $out/check_$pid.txt; }; then
-  (cd $V && python3 check.py $pid --tier $tier > $out/check_$pid.txt 2>$out/check_$pid.err; echo "exit=$? (tier $tier, full check; native sweep flagged nothing the restricted runs could decide)" >> $out/check_$pid.txt)
-fi
-fif [ -n "$hits" ]; then
-  (cd $V && VERIF_ONLY="$hits" python3 check.py $pid --tier $tier > $out/check_$pid.txt 2>$out/check_$pid.err; echo "exit=$? (tier $tier, restricted to the harnesses the native sweep flagged: $hits)" >> $out/check_$pid.txt)
-  if ! grep -q "^VIOLATION" $out/check_$pid.txt && [ "$tier" = quick ]; then
-    # the flagged harnesses may belong to the thorough tier only (larger bounds, slow ones)
-    (cd $V && VERIF_ONLY="$hits" python3 check.py $pid --tier thorough > $out/check_${pid}_thorough.txt 2>$out/check_${pid}_thorough.err; echo "exit=$? (tier thorough, restricted to the harnesses the native sweep flagged: $hits)" >> $out/check_${pid}_thorough.txt)
-    if grep -q "^VIOLATION" $out/check_${pid}_thorough.txt; then cp $out/check_${pid}_thorough.txt $out/check_$pid.txt; fi
-  fi
-fi
-if [ -z "$hits" ] || { ! grep -q "^VIOLATION" $out/check_$pid.txt && grep -q "no obligation was generated" $out/check_$pid.txt; }; then
-  (cd $V && python3 check.py $pid --tier $tier > $out/check_$pid.txt 2>$out/check_$pid.err; echo "exit=$? (tier $tier, full check; native sweep flagged nothing the restricted runs could decide)" >> $out/check_$pid.txt)
-fi
-fif [ -n "$hits" ]; then
-  (cd $V && VERIF_ONLY="$hits" python3 check.py $pid --tier $tier > $out/check_$pid.txt 2>$out/check_$pid.err; echo "exit=$? (tier $tier, restricted to the harnesses the native sweep flagged: $hits)" >> $out/check_$pid.txt)
-  if ! grep -q "^VIOLATION" $out/check_$pid.txt && [ "$tier" = quick ]; then
-    # the flagged harnesses may belong to the thorough tier only (larger bounds, slow ones)
-    (cd $V && VERIF_ONLY="$hits" python3 check.py $pid --tier thorough > $out/check_${pid}_thorough.txt 2>$out/check_${pid}_thorough.err; echo "exit=$? (tier thorough, restricted to the harnesses the native sweep flagged: $hits)" >> $out/check_${pid}_thorough.txt)
-    if grep -q "^VIOLATION" $out/check_${pid}_thorough.txt; then cp $out/check_${pid}_thorough.txt $out/check_$pid.txt; fi
-  fi
-fi
-if [ -z "$hits" ] || { ! grep -q "^VIOLATION" $out/check_$pid.txt && grep -q "no obligation was generated" $out/check_$pid.txt; }; then
-  (cd $V && python3 check.py $pid --tier $tier > $out/check_$pid.txt 2>$out/check_$pid.err; echo "exit=$? (tier $tier, full check; native sweep flagged nothing the restricted runs could decide)" >> $out/check_$pid.txt)
-fi
-eif [ -n "$hits" ]; then
-  (cd $V && VERIF_ONLY="$hits" python3 check.py $pid --tier $tier > $out/check_$pid.txt 2>$out/check_$pid.err; echo "exit=$? (tier $tier, restricted to the harnesses the native sweep flagged: $hits)" >> $out/check_$pid.txt)
-  if ! grep -q "^VIOLATION" $out/check_$pid.txt && [ "$tier" = quick ]; then
-    # the flagged harnesses may belong to the thorough tier only (larger bounds, slow ones)
-    (cd $V && VERIF_ONLY="$hits" python3 check.py $pid --tier thorough > $out/check_${pid}_thorough.txt 2>$out/check_${pid}_thorough.err; echo "exit=$? (tier thorough, restricted to the harnesses the native sweep flagged: $hits)" >> $out/check_${pid}_thorough.txt)
-    if grep -q "^VIOLATION" $out/check_${pid}_thorough.txt; then cp $out/check_${pid}_thorough.txt $out/check_$pid.txt; fi
-  fi
-fi
-if [ -z "$hits" ] || { ! grep -q "^VIOLATION" $out/check_$pid.txt && grep -q "no obligation was generated" $out/check_$pid.txt; }; then
-  (cd $V && python3 check.py $pid --tier $tier > $out/check_$pid.txt 2>$out/check_$pid.err; echo "exit=$? (tier $tier, full check; native sweep flagged nothing the restricted runs could decide)" >> $out/check_$pid.txt)
-fi
-cif [ -n "$hits" ]; then
-  (cd $V && VERIF_ONLY="$hits" python3 check.py $pid --tier $tier > $out/check_$pid.txt 2>$out/check_$pid.err; echo "exit=$? (tier $tier, restricted to the harnesses the native sweep flagged: $hits)" >> $out/check_$pid.txt)
-  if ! grep -q "^VIOLATION" $out/check_$pid.txt && [ "$tier" = quick ]; then
-    # the flagged harnesses may belong to the thorough tier only (larger bounds, slow ones)
-    (cd $V && VERIF_ONLY="$hits" python3 check.py $pid --tier thorough > $out/check_${pid}_thorough.txt 2>$out/check_${pid}_thorough.err; echo "exit=$? (tier thorough, restricted to the harnesses the native sweep flagged: $hits)" >> $out/check_${pid}_thorough.txt)
-    if grep -q "^VIOLATION" $out/check_${pid}_thorough.txt; then cp $out/check_${pid}_thorough.txt $out/check_$pid.txt; fi
-  fi
-fi
-if [ -z "$hits" ] || { ! grep -q "^VIOLATION" $out/check_$pid.txt && grep -q "no obligation was generated" $out/check_$pid.txt; }; then
-  (cd $V && python3 check.py $pid --tier $tier > $out/check_$pid.txt 2>$out/check_$pid.err; echo "exit=$? (tier $tier, full check; native sweep flagged nothing the restricted runs could decide)" >> $out/check_$pid.txt)
-fi
-tif [ -n "$hits" ]; then
-  (cd $V && VERIF_ONLY="$hits" python3 check.py $pid --tier $tier > $out/check_$pid.txt 2>$out/check_$pid.err; echo "exit=$? (tier $tier, restricted to the harnesses the native sweep flagged: $hits)" >> $out/check_$pid.txt)
-  if ! grep -q "^VIOLATION" $out/check_$pid.txt && [ "$tier" = quick ]; then
-    # the flagged harnesses may belong to the thorough tier only (larger bounds, slow ones)
-    (cd $V && VERIF_ONLY="$hits" python3 check.py $pid --tier thorough > $out/check_${pid}_thorough.txt 2>$out/check_${pid}_thorough.err; echo "exit=$? (tier thorough, restricted to the harnesses the native sweep flagged: $hits)" >> $out/check_${pid}_thorough.txt)
-    if grep -q "^VIOLATION" $out/check_${pid}_thorough.txt; then cp $out/check_${pid}_thorough.txt $out/check_$pid.txt; fi
-  fi
-fi
-if [ -z "$hits" ] || { ! grep -q "^VIOLATION" $out/check_$pid.txt && grep -q "no obligation was generated" $out/check_$pid.txt; }; then
-  (cd $V && python3 check.py $pid --tier $tier > $out/check_$pid.txt 2>$out/check_$pid.err; echo "exit=$? (tier $tier, full check; native sweep flagged nothing the restricted runs could decide)" >> $out/check_$pid.txt)
-fi
-eif [ -n "$hits" ]; then
-  (cd $V && VERIF_ONLY="$hits" python3 check.py $pid --tier $tier > $out/check_$pid.txt 2>$out/check_$pid.err; echo "exit=$? (tier $tier, restricted to the harnesses the native sweep flagged: $hits)" >> $out/check_$pid.txt)
-  if ! grep -q "^VIOLATION" $out/check_$pid.txt && [ "$tier" = quick ]; then
-    # the flagged harnesses may belong to the thorough tier only (larger bounds, slow ones)
-    (cd $V && VERIF_ONLY="$hits" python3 check.py $pid --tier thorough > $out/check_${pid}_thorough.txt 2>$out/check_${pid}_thorough.err; echo "exit=$? (tier thorough, restricted to the harnesses the native sweep flagged: $hits)" >> $out/check_${pid}_thorough.txt)
-    if grep -q "^VIOLATION" $out/check_${pid}_thorough.txt; then cp $out/check_${pid}_thorough.txt $out/check_$pid.txt; fi
-  fi
-fi
-if [ -z "$hits" ] || { ! grep -q "^VIOLATION" $out/check_$pid.txt && grep -q "no obligation was generated" $out/check_$pid.txt; }; then
-  (cd $V && python3 check.py $pid --tier $tier > $out/check_$pid.txt 2>$out/check_$pid.err; echo "exit=$? (tier $tier, full check; native sweep flagged nothing the restricted runs could decide)" >> $out/check_$pid.txt)
-fi
-dif [ -n "$hits" ]; then
-  (cd $V && VERIF_ONLY="$hits" python3 check.py $pid --tier $tier > $out/check_$pid.txt 2>$out/check_$pid.err; echo "exit=$? (tier $tier, restricted to the harnesses the native sweep flagged: $hits)" >> $out/check_$pid.txt)
-  if ! grep -q "^VIOLATION" $out/check_$pid.txt && [ "$tier" = quick ]; then
-    # the flagged harnesses may belong to the thorough tier only (larger bounds, slow ones)
-    (cd $V && VERIF_ONLY="$hits" python3 check.py $pid --tier thorough > $out/check_${pid}_thorough.txt 2>$out/check_${pid}_thorough.err; echo "exit=$? (tier thorough, restricted to the harnesses the native sweep flagged: $hits)" >> $out/check_${pid}_thorough.txt)
-    if grep -q "^VIOLATION" $out/check_${pid}_thorough.txt; then cp $out/check_${pid}_thorough.txt $out/check_$pid.txt; fi
-  fi
-fi
-if [ -z "$hits" ] || { ! grep -q "^VIOLATION" $out/check_$pid.txt && grep -q "no obligation was generated" $out/check_$pid.txt; }; then
-  (cd $V && python3 check.py $pid --tier $tier > $out/check_$pid.txt 2>$out/check_$pid.err; echo "exit=$? (tier $tier, full check; native sweep flagged nothing the restricted runs could decide)" >> $out/check_$pid.txt)
-fi
-.if [ -n "$hits" ]; then
-  (cd $V && VERIF_ONLY="$hits" python3 check.py $pid --tier $tier > $out/check_$pid.txt 2>$out/check_$pid.err; echo "exit=$? (tier $tier, restricted to the harnesses the native sweep flagged: $hits)" >> $out/check_$pid.txt)
-  if ! grep -q "^VIOLATION" $out/check_$pid.txt && [ "$tier" = quick ]; then
-    # the flagged harnesses may belong to the thorough tier only (larger bounds, slow ones)
-    (cd $V && VERIF_ONLY="$hits" python3 check.py $pid --tier thorough > $out/check_${pid}_thorough.txt 2>$out/check_${pid}_thorough.err; echo "exit=$? (tier thorough, restricted to the harnesses the native sweep flagged: $hits)" >> $out/check_${pid}_thorough.txt)
-    if grep -q "^VIOLATION" $out/check_${pid}_thorough.txt; then cp $out/check_${pid}_thorough.txt $out/check_$pid.txt; fi
-  fi
-fi
-if [ -z "$hits" ] || { ! grep -q "^VIOLATION" $out/check_$pid.txt && grep -q "no obligation was generated" $out/check_$pid.txt; }; then
-  (cd $V && python3 check.py $pid --tier $tier > $out/check_$pid.txt 2>$out/check_$pid.err; echo "exit=$? (tier $tier, full check; native sweep flagged nothing the restricted runs could decide)" >> $out/check_$pid.txt)
-fi
- if [ -n "$hits" ]; then
-  (cd $V && VERIF_ONLY="$hits" python3 check.py $pid --tier $tier > $out/check_$pid.txt 2>$out/check_$pid.err; echo "exit=$? (tier $tier, restricted to the harnesses the native sweep flagged: $hits)" >> $out/check_$pid.txt)
-  if ! grep -q "^VIOLATION" $out/check_$pid.txt && [ "$tier" = quick ]; then
-    # the flagged harnesses may belong to the thorough tier only (larger bounds, slow ones)
-    (cd $V && VERIF_ONLY="$hits" python3 check.py $pid --tier thorough > $out/check_${pid}_thorough.txt 2>$out/check_${pid}_thorough.err; echo "exit=$? (tier thorough, restricted to the harnesses the native sweep flagged: $hits)" >> $out/check_${pid}_thorough.txt)
-    if grep -q "^VIOLATION" $out/check_${pid}_thorough.txt; then cp $out/check_${pid}_thorough.txt $out/check_$pid.txt; fi
-  fi
-fi
-if [ -z "$hits" ] || { ! grep -q "^VIOLATION" $out/check_$pid.txt && grep -q "no obligation was generated" $out/check_$pid.txt; }; then
-  (cd $V && python3 check.py $pid --tier $tier > $out/check_$pid.txt 2>$out/check_$pid.err; echo "exit=$? (tier $tier, full check; native sweep flagged nothing the restricted runs could decide)" >> $out/check_$pid.txt)
-fi
-Sif [ -n "$hits" ]; then
-  (cd $V && VERIF_ONLY="$hits" python3 check.py $pid --tier $tier > $out/check_$pid.txt 2>$out/check_$pid.err; echo "exit=$? (tier $tier, restricted to the harnesses the native sweep flagged: $hits)" >> $out/check_$pid.txt)
-  if ! grep -q "^VIOLATION" $out/check_$pid.txt && [ "$tier" = quick ]; then
-    # the flagged harnesses may belong to the thorough tier only (larger bounds, slow ones)
-    (cd $V && VERIF_ONLY="$hits" python3 check.py $pid --tier thorough > $out/check_${pid}_thorough.txt 2>$out/check_${pid}_thorough.err; echo "exit=$? (tier thorough, restricted to the harnesses the native sweep flagged: $hits)" >> $out/check_${pid}_thorough.txt)
-    if grep -q "^VIOLATION" $out/check_${pid}_thorough.txt; then cp $out/check_${pid}_thorough.txt $out/check_$pid.txt; fi
-  fi
-fi
-if [ -z "$hits" ] || { ! grep -q "^VIOLATION" $out/check_$pid.txt && grep -q "no obligation was generated" $out/check_$pid.txt; }; then
-  (cd $V && python3 check.py $pid --tier $tier > $out/check_$pid.txt 2>$out/check_$pid.err; echo "exit=$? (tier $tier, full check; native sweep flagged nothing the restricted runs could decide)" >> $out/check_$pid.txt)
-fi
-tif [ -n "$hits" ]; then
-  (cd $V && VERIF_ONLY="$hits" python3 check.py $pid --tier $tier > $out/check_$pid.txt 2>$out/check_$pid.err; echo "exit=$? (tier $tier, restricted to the harnesses the native sweep flagged: $hits)" >> $out/check_$pid.txt)
-  if ! grep -q "^VIOLATION" $out/check_$pid.txt && [ "$tier" = quick ]; then
-    # the flagged harnesses may belong to the thorough tier only (larger bounds, slow ones)
-    (cd $V && VERIF_ONLY="$hits" python3 check.py $pid --tier thorough > $out/check_${pid}_thorough.txt 2>$out/check_${pid}_thorough.err; echo "exit=$? (tier thorough, restricted to the harnesses the native sweep flagged: $hits)" >> $out/check_${pid}_thorough.txt)
-    if grep -q "^VIOLATION" $out/check_${pid}_thorough.txt; then cp $out/check_${pid}_thorough.txt $out/check_$pid.txt; fi
-  fi
-fi
-if [ -z "$hits" ] || { ! grep -q "^VIOLATION" $out/check_$pid.txt && grep -q "no obligation was generated" $out/check_$pid.txt; }; then
-  (cd $V && python3 check.py $pid --tier $tier > $out/check_$pid.txt 2>$out/check_$pid.err; echo "exit=$? (tier $tier, full check; native sweep flagged nothing the restricted runs could decide)" >> $out/check_$pid.txt)
-fi
-eif [ -n "$hits" ]; then
-  (cd $V && VERIF_ONLY="$hits" python3 check.py $pid --tier $tier > $out/check_$pid.txt 2>$out/check_$pid.err; echo "exit=$? (tier $tier, restricted to the harnesses the native sweep flagged: $hits)" >> $out/check_$pid.txt)
-  if ! grep -q "^VIOLATION" $out/check_$pid.txt && [ "$tier" = quick ]; then
-    # the flagged harnesses may belong to the thorough tier only (larger bounds, slow ones)
-    (cd $V && VERIF_ONLY="$hits" python3 check.py $pid --tier thorough > $out/check_${pid}_thorough.txt 2>$out/check_${pid}_thorough.err; echo "exit=$? (tier thorough, restricted to the harnesses the native sweep flagged: $hits)" >> $out/check_${pid}_thorough.txt)
-    if grep -q "^VIOLATION" $out/check_${pid}_thorough.txt; then cp $out/check_${pid}_thorough.txt $out/check_$pid.txt; fi
-  fi
-fi
-if [ -z "$hits" ] || { ! grep -q "^VIOLATION" $out/check_$pid.txt && grep -q "no obligation was generated" $out/check_$pid.txt; }; then
-  (cd $V && python3 check.py $pid --tier $tier > $out/check_$pid.txt 2>$out/check_$pid.err; echo "exit=$? (tier $tier, full check; native sweep flagged nothing the restricted runs could decide)" >> $out/check_$pid.txt)
-fi
-pif [ -n "$hits" ]; then
-  (cd $V && VERIF_ONLY="$hits" python3 check.py $pid --tier $tier > $out/check_$pid.txt 2>$out/check_$pid.err; echo "exit=$? (tier $tier, restricted to the harnesses the native sweep flagged: $hits)" >> $out/check_$pid.txt)
-  if ! grep -q "^VIOLATION" $out/check_$pid.txt && [ "$tier" = quick ]; then
-    # the flagged harnesses may belong to the thorough tier only (larger bounds, slow ones)
-    (cd $V && VERIF_ONLY="$hits" python3 check.py $pid --tier thorough > $out/check_${pid}_thorough.txt 2>$out/check_${pid}_thorough.err; echo "exit=$? (tier thorough, restricted to the harnesses the native sweep flagged: $hits)" >> $out/check_${pid}_thorough.txt)
-    if grep -q "^VIOLATION" $out/check_${pid}_thorough.txt; then cp $out/check_${pid}_thorough.txt $out/check_$pid.txt; fi
-  fi
-fi
-if [ -z "$hits" ] || { ! grep -q "^VIOLATION" $out/check_$pid.txt && grep -q "no obligation was generated" $out/check_$pid.txt; }; then
-  (cd $V && python3 check.py $pid --tier $tier > $out/check_$pid.txt 2>$out/check_$pid.err; echo "exit=$? (tier $tier, full check; native sweep flagged nothing the restricted runs could decide)" >> $out/check_$pid.txt)
-fi
- if [ -n "$hits" ]; then
-  (cd $V && VERIF_ONLY="$hits" python3 check.py $pid --tier $tier > $out/check_$pid.txt 2>$out/check_$pid.err; echo "exit=$? (tier $tier, restricted to the harnesses the native sweep flagged: $hits)" >> $out/check_$pid.txt)
-  if ! grep -q "^VIOLATION" $out/check_$pid.txt && [ "$tier" = quick ]; then
-    # the flagged harnesses may belong to the thorough tier only (larger bounds, slow ones)
-    (cd $V && VERIF_ONLY="$hits" python3 check.py $pid --tier thorough > $out/check_${pid}_thorough.txt 2>$out/check_${pid}_thorough.err; echo "exit=$? (tier thorough, restricted to the harnesses the native sweep flagged: $hits)" >> $out/check_${pid}_thorough.txt)
-    if grep -q "^VIOLATION" $out/check_${pid}_thorough.txt; then cp $out/check_${pid}_thorough.txt $out/check_$pid.txt; fi
-  fi
-fi
-if [ -z "$hits" ] || { ! grep -q "^VIOLATION" $out/check_$pid.txt && grep -q "no obligation was generated" $out/check_$pid.txt; }; then
-  (cd $V && python3 check.py $pid --tier $tier > $out/check_$pid.txt 2>$out/check_$pid.err; echo "exit=$? (tier $tier, full check; native sweep flagged nothing the restricted runs could decide)" >> $out/check_$pid.txt)
-fi
-2if [ -n "$hits" ]; then
-  (cd $V && VERIF_ONLY="$hits" python3 check.py $pid --tier $tier > $out/check_$pid.txt 2>$out/check_$pid.err; echo "exit=$? (tier $tier, restricted to the harnesses the native sweep flagged: $hits)" >> $out/check_$pid.txt)
-  if ! grep -q "^VIOLATION" $out/check_$pid.txt && [ "$tier" = quick ]; then
-    # the flagged harnesses may belong to the thorough tier only (larger bounds, slow ones)
-    (cd $V && VERIF_ONLY="$hits" python3 check.py $pid --tier thorough > $out/check_${pid}_thorough.txt 2>$out/check_${pid}_thorough.err; echo "exit=$? (tier thorough, restricted to the harnesses the native sweep flagged: $hits)" >> $out/check_${pid}_thorough.txt)
-    if grep -q "^VIOLATION" $out/check_${pid}_thorough.txt; then cp $out/check_${pid}_thorough.txt $out/check_$pid.txt; fi
-  fi
-fi
-if [ -z "$hits" ] || { ! grep -q "^VIOLATION" $out/check_$pid.txt && grep -q "no obligation was generated" $out/check_$pid.txt; }; then
-  (cd $V && python3 check.py $pid --tier $tier > $out/check_$pid.txt 2>$out/check_$pid.err; echo "exit=$? (tier $tier, full check; native sweep flagged nothing the restricted runs could decide)" >> $out/check_$pid.txt)
-fi
-:if [ -n "$hits" ]; then
-  (cd $V && VERIF_ONLY="$hits" python3 check.py $pid --tier $tier > $out/check_$pid.txt 2>$out/check_$pid.err; echo "exit=$? (tier $tier, restricted to the harnesses the native sweep flagged: $hits)" >> $out/check_$pid.txt)
-  if ! grep -q "^VIOLATION" $out/check_$pid.txt && [ "$tier" = quick ]; then
-    # the flagged harnesses may belong to the thorough tier only (larger bounds, slow ones)
-    (cd $V && VERIF_ONLY="$hits" python3 check.py $pid --tier thorough > $out/check_${pid}_thorough.txt 2>$out/check_${pid}_thorough.err; echo "exit=$? (tier thorough, restricted to the harnesses the native sweep flagged: $hits)" >> $out/check_${pid}_thorough.txt)
-    if grep -q "^VIOLATION" $out/check_${pid}_thorough.txt; then cp $out/check_${pid}_thorough.txt $out/check_$pid.txt; fi
-  fi
-fi
-if [ -z "$hits" ] || { ! grep -q "^VIOLATION" $out/check_$pid.txt && grep -q "no obligation was generated" $out/check_$pid.txt; }; then
-  (cd $V && python3 check.py $pid --tier $tier > $out/check_$pid.txt 2>$out/check_$pid.err; echo "exit=$? (tier $tier, full check; native sweep flagged nothing the restricted runs could decide)" >> $out/check_$pid.txt)
-fi
- if [ -n "$hits" ]; then
-  (cd $V && VERIF_ONLY="$hits" python3 check.py $pid --tier $tier > $out/check_$pid.txt 2>$out/check_$pid.err; echo "exit=$? (tier $tier, restricted to the harnesses the native sweep flagged: $hits)" >> $out/check_$pid.txt)
-  if ! grep -q "^VIOLATION" $out/check_$pid.txt && [ "$tier" = quick ]; then
-    # the flagged harnesses may belong to the thorough tier only (larger bounds, slow ones)
-    (cd $V && VERIF_ONLY="$hits" python3 check.py $pid --tier thorough > $out/check_${pid}_thorough.txt 2>$out/check_${pid}_thorough.err; echo "exit=$? (tier thorough, restricted to the harnesses the native sweep flagged: $hits)" >> $out/check_${pid}_thorough.txt)
-    if grep -q "^VIOLATION" $out/check_${pid}_thorough.txt; then cp $out/check_${pid}_thorough.txt $out/check_$pid.txt; fi
-  fi
-fi
-if [ -z "$hits" ] || { ! grep -q "^VIOLATION" $out/check_$pid.txt && grep -q "no obligation was generated" $out/check_$pid.txt; }; then
-  (cd $V && python3 check.py $pid --tier $tier > $out/check_$pid.txt 2>$out/check_$pid.err; echo "exit=$? (tier $tier, full check; native sweep flagged nothing the restricted runs could decide)" >> $out/check_$pid.txt)
-fi
-tif [ -n "$hits" ]; then
-  (cd $V && VERIF_ONLY="$hits" python3 check.py $pid --tier $tier > $out/check_$pid.txt 2>$out/check_$pid.err; echo "exit=$? (tier $tier, restricted to the harnesses the native sweep flagged: $hits)" >> $out/check_$pid.txt)
-  if ! grep -q "^VIOLATION" $out/check_$pid.txt && [ "$tier" = quick ]; then
-    # the flagged harnesses may belong to the thorough tier only (larger bounds, slow ones)
-    (cd $V && VERIF_ONLY="$hits" python3 check.py $pid --tier thorough > $out/check_${pid}_thorough.txt 2>$out/check_${pid}_thorough.err; echo "exit=$? (tier thorough, restricted to the harnesses the native sweep flagged: $hits)" >> $out/check_${pid}_thorough.txt)
-    if grep -q "^VIOLATION" $out/check_${pid}_thorough.txt; then cp $out/check_${pid}_thorough.txt $out/check_$pid.txt; fi
-  fi
-fi
-if [ -z "$hits" ] || { ! grep -q "^VIOLATION" $out/check_$pid.txt && grep -q "no obligation was generated" $out/check_$pid.txt; }; then
-  (cd $V && python3 check.py $pid --tier $tier > $out/check_$pid.txt 2>$out/check_$pid.err; echo "exit=$? (tier $tier, full check; native sweep flagged nothing the restricted runs could decide)" >> $out/check_$pid.txt)
-fi
-hif [ -n "$hits" ]; then
-  (cd $V && VERIF_ONLY="$hits" python3 check.py $pid --tier $tier > $out/check_$pid.txt 2>$out/check_$pid.err; echo "exit=$? (tier $tier, restricted to the harnesses the native sweep flagged: $hits)" >> $out/check_$pid.txt)
-  if ! grep -q "^VIOLATION" $out/check_$pid.txt && [ "$tier" = quick ]; then
-    # the flagged harnesses may belong to the thorough tier only (larger bounds, slow ones)
-    (cd $V && VERIF_ONLY="$hits" python3 check.py $pid --tier thorough > $out/check_${pid}_thorough.txt 2>$out/check_${pid}_thorough.err; echo "exit=$? (tier thorough, restricted to the harnesses the native sweep flagged: $hits)" >> $out/check_${pid}_thorough.txt)
-    if grep -q "^VIOLATION" $out/check_${pid}_thorough.txt; then cp $out/check_${pid}_thorough.txt $out/check_$pid.txt; fi
-  fi
-fi
-if [ -z "$hits" ] || { ! grep -q "^VIOLATION" $out/check_$pid.txt && grep -q "no obligation was generated" $out/check_$pid.txt; }; then
-  (cd $V && python3 check.py $pid --tier $tier > $out/check_$pid.txt 2>$out/check_$pid.err; echo "exit=$? (tier $tier, full check; native sweep flagged nothing the restricted runs could decide)" >> $out/check_$pid.txt)
-fi
-eif [ -n "$hits" ]; then
-  (cd $V && VERIF_ONLY="$hits" python3 check.py $pid --tier $tier > $out/check_$pid.txt 2>$out/check_$pid.err; echo "exit=$? (tier $tier, restricted to the harnesses the native sweep flagged: $hits)" >> $out/check_$pid.txt)
-  if ! grep -q "^VIOLATION" $out/check_$pid.txt && [ "$tier" = quick ]; then
-    # the flagged harnesses may belong to the thorough tier only (larger bounds, slow ones)
-    (cd $V && VERIF_ONLY="$hits" python3 check.py $pid --tier thorough > $out/check_${pid}_thorough.txt 2>$out/check_${pid}_thorough.err; echo "exit=$? (tier thorough, restricted to the harnesses the native sweep flagged: $hits)" >> $out/check_${pid}_thorough.txt)
-    if grep -q "^VIOLATION" $out/check_${pid}_thorough.txt; then cp $out/check_${pid}_thorough.txt $out/check_$pid.txt; fi
-  fi
-fi
-if [ -z "$hits" ] || { ! grep -q "^VIOLATION" $out/check_$pid.txt && grep -q "no obligation was generated" $out/check_$pid.txt; }; then
-  (cd $V && python3 check.py $pid --tier $tier > $out/check_$pid.txt 2>$out/check_$pid.err; echo "exit=$? (tier $tier, full check; native sweep flagged nothing the restricted runs could decide)" >> $out/check_$pid.txt)
-fi
- if [ -n "$hits" ]; then
-  (cd $V && VERIF_ONLY="$hits" python3 check.py $pid --tier $tier > $out/check_$pid.txt 2>$out/check_$pid.err; echo "exit=$? (tier $tier, restricted to the harnesses the native sweep flagged: $hits)" >> $out/check_$pid.txt)
-  if ! grep -q "^VIOLATION" $out/check_$pid.txt && [ "$tier" = quick ]; then
-    # the flagged harnesses may belong to the thorough tier only (larger bounds, slow ones)
-    (cd $V && VERIF_ONLY="$hits" python3 check.py $pid --tier thorough > $out/check_${pid}_thorough.txt 2>$out/check_${pid}_thorough.err; echo "exit=$? (tier thorough, restricted to the harnesses the native sweep flagged: $hits)" >> $out/check_${pid}_thorough.txt)
-    if grep -q "^VIOLATION" $out/check_${pid}_thorough.txt; then cp $out/check_${pid}_thorough.txt $out/check_$pid.txt; fi
-  fi
-fi
-if [ -z "$hits" ] || { ! grep -q "^VIOLATION" $out/check_$pid.txt && grep -q "no obligation was generated" $out/check_$pid.txt; }; then
-  (cd $V && python3 check.py $pid --tier $tier > $out/check_$pid.txt 2>$out/check_$pid.err; echo "exit=$? (tier $tier, full check; native sweep flagged nothing the restricted runs could decide)" >> $out/check_$pid.txt)
-fi
-pif [ -n "$hits" ]; then
-  (cd $V && VERIF_ONLY="$hits" python3 check.py $pid --tier $tier > $out/check_$pid.txt 2>$out/check_$pid.err; echo "exit=$? (tier $tier, restricted to the harnesses the native sweep flagged: $hits)" >> $out/check_$pid.txt)
-  if ! grep -q "^VIOLATION" $out/check_$pid.txt && [ "$tier" = quick ]; then
-    # the flagged harnesses may belong to the thorough tier only (larger bounds, slow ones)
-    (cd $V && VERIF_ONLY="$hits" python3 check.py $pid --tier thorough > $out/check_${pid}_thorough.txt 2>$out/check_${pid}_thorough.err; echo "exit=$? (tier thorough, restricted to the harnesses the native sweep flagged: $hits)" >> $out/check_${pid}_thorough.txt)
-    if grep -q "^VIOLATION" $out/check_${pid}_thorough.txt; then cp $out/check_${pid}_thorough.txt $out/check_$pid.txt; fi
-  fi
-fi
-if [ -z "$hits" ] || { ! grep -q "^VIOLATION" $out/check_$pid.txt && grep -q "no obligation was generated" $out/check_$pid.txt; }; then
-  (cd $V && python3 check.py $pid --tier $tier > $out/check_$pid.txt 2>$out/check_$pid.err; echo "exit=$? (tier $tier, full check; native sweep flagged nothing the restricted runs could decide)" >> $out/check_$pid.txt)
-fi
-rif [ -n "$hits" ]; then
-  (cd $V && VERIF_ONLY="$hits" python3 check.py $pid --tier $tier > $out/check_$pid.txt 2>$out/check_$pid.err; echo "exit=$? (tier $tier, restricted to the harnesses the native sweep flagged: $hits)" >> $out/check_$pid.txt)
-  if ! grep -q "^VIOLATION" $out/check_$pid.txt && [ "$tier" = quick ]; then
-    # the flagged harnesses may belong to the thorough tier only (larger bounds, slow ones)
-    (cd $V && VERIF_ONLY="$hits" python3 check.py $pid --tier thorough > $out/check_${pid}_thorough.txt 2>$out/check_${pid}_thorough.err; echo "exit=$? (tier thorough, restricted to the harnesses the native sweep flagged: $hits)" >> $out/check_${pid}_thorough.txt)
-    if grep -q "^VIOLATION" $out/check_${pid}_thorough.txt; then cp $out/check_${pid}_thorough.txt $out/check_$pid.txt; fi
-  fi
-fi
-if [ -z "$hits" ] || { ! grep -q "^VIOLATION" $out/check_$pid.txt && grep -q "no obligation was generated" $out/check_$pid.txt; }; then
-  (cd $V && python3 check.py $pid --tier $tier > $out/check_$pid.txt 2>$out/check_$pid.err; echo "exit=$? (tier $tier, full check; native sweep flagged nothing the restricted runs could decide)" >> $out/check_$pid.txt)
-fi
-oif [ -n "$hits" ]; then
-  (cd $V && VERIF_ONLY="$hits" python3 check.py $pid --tier $tier > $out/check_$pid.txt 2>$out/check_$pid.err; echo "exit=$? (tier $tier, restricted to the harnesses the native sweep flagged: $hits)" >> $out/check_$pid.txt)
-  if ! grep -q "^VIOLATION" $out/check_$pid.txt && [ "$tier" = quick ]; then
-    # the flagged harnesses may belong to the thorough tier only (larger bounds, slow ones)
-    (cd $V && VERIF_ONLY="$hits" python3 check.py $pid --tier thorough > $out/check_${pid}_thorough.txt 2>$out/check_${pid}_thorough.err; echo "exit=$? (tier thorough, restricted to the harnesses the native sweep flagged: $hits)" >> $out/check_${pid}_thorough.txt)
-    if grep -q "^VIOLATION" $out/check_${pid}_thorough.txt; then cp $out/check_${pid}_thorough.txt $out/check_$pid.txt; fi
-  fi
-fi
-if [ -z "$hits" ] || { ! grep -q "^VIOLATION" $out/check_$pid.txt && grep -q "no obligation was generated" $out/check_$pid.txt; }; then
-  (cd $V && python3 check.py $pid --tier $tier > $out/check_$pid.txt 2>$out/check_$pid.err; echo "exit=$? (tier $tier, full check; native sweep flagged nothing the restricted runs could decide)" >> $out/check_$pid.txt)
-fi
-pif [ -n "$hits" ]; then
-  (cd $V && VERIF_ONLY="$hits" python3 check.py $pid --tier $tier > $out/check_$pid.txt 2>$out/check_$pid.err; echo "exit=$? (tier $tier, restricted to the harnesses the native sweep flagged: $hits)" >> $out/check_$pid.txt)
-  if ! grep -q "^VIOLATION" $out/check_$pid.txt && [ "$tier" = quick ]; then
-    # the flagged harnesses may belong to the thorough tier only (larger bounds, slow ones)
-    (cd $V && VERIF_ONLY="$hits" python3 check.py $pid --tier thorough > $out/check_${pid}_thorough.txt 2>$out/check_${pid}_thorough.err; echo "exit=$? (tier thorough, restricted to the harnesses the native sweep flagged: $hits)" >> $out/check_${pid}_thorough.txt)
-    if grep -q "^VIOLATION" $out/check_${pid}_thorough.txt; then cp $out/check_${pid}_thorough.txt $out/check_$pid.txt; fi
-  fi
-fi
-if [ -z "$hits" ] || { ! grep -q "^VIOLATION" $out/check_$pid.txt && grep -q "no obligation was generated" $out/check_$pid.txt; }; then
-  (cd $V && python3 check.py $pid --tier $tier > $out/check_$pid.txt 2>$out/check_$pid.err; echo "exit=$? (tier $tier, full check; native sweep flagged nothing the restricted runs could decide)" >> $out/check_$pid.txt)
-fi
-eif [ -n "$hits" ]; then
-  (cd $V && VERIF_ONLY="$hits" python3 check.py $pid --tier $tier > $out/check_$pid.txt 2>$out/check_$pid.err; echo "exit=$? (tier $tier, restricted to the harnesses the native sweep flagged: $hits)" >> $out/check_$pid.txt)
-  if ! grep -q "^VIOLATION" $out/check_$pid.txt && [ "$tier" = quick ]; then
-    # the flagged harnesses may belong to the thorough tier only (larger bounds, slow ones)
-    (cd $V && VERIF_ONLY="$hits" python3 check.py $pid --tier thorough > $out/check_${pid}_thorough.txt 2>$out/check_${pid}_thorough.err; echo "exit=$? (tier thorough, restricted to the harnesses the native sweep flagged: $hits)" >> $out/check_${pid}_thorough.txt)
-    if grep -q "^VIOLATION" $out/check_${pid}_thorough.txt; then cp $out/check_${pid}_thorough.txt $out/check_$pid.txt; fi
-  fi
-fi
-if [ -z "$hits" ] || { ! grep -q "^VIOLATION" $out/check_$pid.txt && grep -q "no obligation was generated" $out/check_$pid.txt; }; then
-  (cd $V && python3 check.py $pid --tier $tier > $out/check_$pid.txt 2>$out/check_$pid.err; echo "exit=$? (tier $tier, full check; native sweep flagged nothing the restricted runs could decide)" >> $out/check_$pid.txt)
-fi
-rif [ -n "$hits" ]; then
-  (cd $V && VERIF_ONLY="$hits" python3 check.py $pid --tier $tier > $out/check_$pid.txt 2>$out/check_$pid.err; echo "exit=$? (tier $tier, restricted to the harnesses the native sweep flagged: $hits)" >> $out/check_$pid.txt)
-  if ! grep -q "^VIOLATION" $out/check_$pid.txt && [ "$tier" = quick ]; then
-    # the flagged harnesses may belong to the thorough tier only (larger bounds, slow ones)
-    (cd $V && VERIF_ONLY="$hits" python3 check.py $pid --tier thorough > $out/check_${pid}_thorough.txt 2>$out/check_${pid}_thorough.err; echo "exit=$? (tier thorough, restricted to the harnesses the native sweep flagged: $hits)" >> $out/check_${pid}_thorough.txt)
-    if grep -q "^VIOLATION" $out/check_${pid}_thorough.txt; then cp $out/check_${pid}_thorough.txt $out/check_$pid.txt; fi
-  fi
-fi
-if [ -z "$hits" ] || { ! grep -q "^VIOLATION" $out/check_$pid.txt && grep -q "no obligation was generated" $out/check_$pid.txt; }; then
-  (cd $V && python3 check.py $pid --tier $tier > $out/check_$pid.txt 2>$out/check_$pid.err; echo "exit=$? (tier $tier, full check; native sweep flagged nothing the restricted runs could decide)" >> $out/check_$pid.txt)
-fi
-tif [ -n "$hits" ]; then
-  (cd $V && VERIF_ONLY="$hits" python3 check.py $pid --tier $tier > $out/check_$pid.txt 2>$out/check_$pid.err; echo "exit=$? (tier $tier, restricted to the harnesses the native sweep flagged: $hits)" >> $out/check_$pid.txt)
-  if ! grep -q "^VIOLATION" $out/check_$pid.txt && [ "$tier" = quick ]; then
-    # the flagged harnesses may belong to the thorough tier only (larger bounds, slow ones)
-    (cd $V && VERIF_ONLY="$hits" python3 check.py $pid --tier thorough > $out/check_${pid}_thorough.txt 2>$out/check_${pid}_thorough.err; echo "exit=$? (tier thorough, restricted to the harnesses the native sweep flagged: $hits)" >> $out/check_${pid}_thorough.txt)
-    if grep -q "^VIOLATION" $out/check_${pid}_thorough.txt; then cp $out/check_${pid}_thorough.txt $out/check_$pid.txt; fi
-  fi
-fi
-if [ -z "$hits" ] || { ! grep -q "^VIOLATION" $out/check_$pid.txt && grep -q "no obligation was generated" $out/check_$pid.txt; }; then
-  (cd $V && python3 check.py $pid --tier $tier > $out/check_$pid.txt 2>$out/check_$pid.err; echo "exit=$? (tier $tier, full check; native sweep flagged nothing the restricted runs could decide)" >> $out/check_$pid.txt)
-fi
-yif [ -n "$hits" ]; then
-  (cd $V && VERIF_ONLY="$hits" python3 check.py $pid --tier $tier > $out/check_$pid.txt 2>$out/check_$pid.err; echo "exit=$? (tier $tier, restricted to the harnesses the native sweep flagged: $hits)" >> $out/check_$pid.txt)
-  if ! grep -q "^VIOLATION" $out/check_$pid.txt && [ "$tier" = quick ]; then
-    # the flagged harnesses may belong to the thorough tier only (larger bounds, slow ones)
-    (cd $V && VERIF_ONLY="$hits" python3 check.py $pid --tier thorough > $out/check_${pid}_thorough.txt 2>$out/check_${pid}_thorough.err; echo "exit=$? (tier thorough, restricted to the harnesses the native sweep flagged: $hits)" >> $out/check_${pid}_thorough.txt)
-    if grep -q "^VIOLATION" $out/check_${pid}_thorough.txt; then cp $out/check_${pid}_thorough.txt $out/check_$pid.txt; fi
-  fi
-fi
-if [ -z "$hits" ] || { ! grep -q "^VIOLATION" $out/check_$pid.txt && grep -q "no obligation was generated" $out/check_$pid.txt; }; then
-  (cd $V && python3 check.py $pid --tier $tier > $out/check_$pid.txt 2>$out/check_$pid.err; echo "exit=$? (tier $tier, full check; native sweep flagged nothing the restricted runs could decide)" >> $out/check_$pid.txt)
-fi
-'if [ -n "$hits" ]; then
-  (cd $V && VERIF_ONLY="$hits" python3 check.py $pid --tier $tier > $out/check_$pid.txt 2>$out/check_$pid.err; echo "exit=$? (tier $tier, restricted to the harnesses the native sweep flagged: $hits)" >> $out/check_$pid.txt)
-  if ! grep -q "^VIOLATION" $out/check_$pid.txt && [ "$tier" = quick ]; then
-    # the flagged harnesses may belong to the thorough tier only (larger bounds, slow ones)
-    (cd $V && VERIF_ONLY="$hits" python3 check.py $pid --tier thorough > $out/check_${pid}_thorough.txt 2>$out/check_${pid}_thorough.err; echo "exit=$? (tier thorough, restricted to the harnesses the native sweep flagged: $hits)" >> $out/check_${pid}_thorough.txt)
-    if grep -q "^VIOLATION" $out/check_${pid}_thorough.txt; then cp $out/check_${pid}_thorough.txt $out/check_$pid.txt; fi
-  fi
-fi
-if [ -z "$hits" ] || { ! grep -q "^VIOLATION" $out/check_$pid.txt && grep -q "no obligation was generated" $out/check_$pid.txt; }; then
-  (cd $V && python3 check.py $pid --tier $tier > $out/check_$pid.txt 2>$out/check_$pid.err; echo "exit=$? (tier $tier, full check; native sweep flagged nothing the restricted runs could decide)" >> $out/check_$pid.txt)
-fi
-sif [ -n "$hits" ]; then
-  (cd $V && VERIF_ONLY="$hits" python3 check.py $pid --tier $tier > $out/check_$pid.txt 2>$out/check_$pid.err; echo "exit=$? (tier $tier, restricted to the harnesses the native sweep flagged: $hits)" >> $out/check_$pid.txt)
-  if ! grep -q "^VIOLATION" $out/check_$pid.txt && [ "$tier" = quick ]; then
-    # the flagged harnesses may belong to the thorough tier only (larger bounds, slow ones)
-    (cd $V && VERIF_ONLY="$hits" python3 check.py $pid --tier thorough > $out/check_${pid}_thorough.txt 2>$out/check_${pid}_thorough.err; echo "exit=$? (tier thorough, restricted to the harnesses the native sweep flagged: $hits)" >> $out/check_${pid}_thorough.txt)
-    if grep -q "^VIOLATION" $out/check_${pid}_thorough.txt; then cp $out/check_${pid}_thorough.txt $out/check_$pid.txt; fi
-  fi
-fi
-if [ -z "$hits" ] || { ! grep -q "^VIOLATION" $out/check_$pid.txt && grep -q "no obligation was generated" $out/check_$pid.txt; }; then
-  (cd $V && python3 check.py $pid --tier $tier > $out/check_$pid.txt 2>$out/check_$pid.err; echo "exit=$? (tier $tier, full check; native sweep flagged nothing the restricted runs could decide)" >> $out/check_$pid.txt)
-fi
- if [ -n "$hits" ]; then
-  (cd $V && VERIF_ONLY="$hits" python3 check.py $pid --tier $tier > $out/check_$pid.txt 2>$out/check_$pid.err; echo "exit=$? (tier $tier, restricted to the harnesses the native sweep flagged: $hits)" >> $out/check_$pid.txt)
-  if ! grep -q "^VIOLATION" $out/check_$pid.txt && [ "$tier" = quick ]; then
-    # the flagged harnesses may belong to the thorough tier only (larger bounds, slow ones)
-    (cd $V && VERIF_ONLY="$hits" python3 check.py $pid --tier thorough > $out/check_${pid}_thorough.txt 2>$out/check_${pid}_thorough.err; echo "exit=$? (tier thorough, restricted to the harnesses the native sweep flagged: $hits)" >> $out/check_${pid}_thorough.txt)
-    if grep -q "^VIOLATION" $out/check_${pid}_thorough.txt; then cp $out/check_${pid}_thorough.txt $out/check_$pid.txt; fi
-  fi
-fi
-if [ -z "$hits" ] || { ! grep -q "^VIOLATION" $out/check_$pid.txt && grep -q "no obligation was generated" $out/check_$pid.txt; }; then
-  (cd $V && python3 check.py $pid --tier $tier > $out/check_$pid.txt 2>$out/check_$pid.err; echo "exit=$? (tier $tier, full check; native sweep flagged nothing the restricted runs could decide)" >> $out/check_$pid.txt)
-fi
-cif [ -n "$hits" ]; then
-  (cd $V && VERIF_ONLY="$hits" python3 check.py $pid --tier $tier > $out/check_$pid.txt 2>$out/check_$pid.err; echo "exit=$? (tier $tier, restricted to the harnesses the native sweep flagged: $hits)" >> $out/check_$pid.txt)
-  if ! grep -q "^VIOLATION" $out/check_$pid.txt && [ "$tier" = quick ]; then
-    # the flagged harnesses may belong to the thorough tier only (larger bounds, slow ones)
-    (cd $V && VERIF_ONLY="$hits" python3 check.py $pid --tier thorough > $out/check_${pid}_thorough.txt 2>$out/check_${pid}_thorough.err; echo "exit=$? (tier thorough, restricted to the harnesses the native sweep flagged: $hits)" >> $out/check_${pid}_thorough.txt)
-    if grep -q "^VIOLATION" $out/check_${pid}_thorough.txt; then cp $out/check_${pid}_thorough.txt $out/check_$pid.txt; fi
-  fi
-fi
-if [ -z "$hits" ] || { ! grep -q "^VIOLATION" $out/check_$pid.txt && grep -q "no obligation was generated" $out/check_$pid.txt; }; then
-  (cd $V && python3 check.py $pid --tier $tier > $out/check_$pid.txt 2>$out/check_$pid.err; echo "exit=$? (tier $tier, full check; native sweep flagged nothing the restricted runs could decide)" >> $out/check_$pid.txt)
-fi
-hif [ -n "$hits" ]; then
-  (cd $V && VERIF_ONLY="$hits" python3 check.py $pid --tier $tier > $out/check_$pid.txt 2>$out/check_$pid.err; echo "exit=$? (tier $tier, restricted to the harnesses the native sweep flagged: $hits)" >> $out/check_$pid.txt)
-  if ! grep -q "^VIOLATION" $out/check_$pid.txt && [ "$tier" = quick ]; then
-    # the flagged harnesses may belong to the thorough tier only (larger bounds, slow ones)
-    (cd $V && VERIF_ONLY="$hits" python3 check.py $pid --tier thorough > $out/check_${pid}_thorough.txt 2>$out/check_${pid}_thorough.err; echo "exit=$? (tier thorough, restricted to the harnesses the native sweep flagged: $hits)" >> $out/check_${pid}_thorough.txt)
-    if grep -q "^VIOLATION" $out/check_${pid}_thorough.txt; then cp $out/check_${pid}_thorough.txt $out/check_$pid.txt; fi
-  fi
-fi
-if [ -z "$hits" ] || { ! grep -q "^VIOLATION" $out/check_$pid.txt && grep -q "no obligation was generated" $out/check_$pid.txt; }; then
-  (cd $V && python3 check.py $pid --tier $tier > $out/check_$pid.txt 2>$out/check_$pid.err; echo "exit=$? (tier $tier, full check; native sweep flagged nothing the restricted runs could decide)" >> $out/check_$pid.txt)
-fi
-eif [ -n "$hits" ]; then
-  (cd $V && VERIF_ONLY="$hits" python3 check.py $pid --tier $tier > $out/check_$pid.txt 2>$out/check_$pid.err; echo "exit=$? (tier $tier, restricted to the harnesses the native sweep flagged: $hits)" >> $out/check_$pid.txt)
-  if ! grep -q "^VIOLATION" $out/check_$pid.txt && [ "$tier" = quick ]; then
-    # the flagged harnesses may belong to the thorough tier only (larger bounds, slow ones)
-    (cd $V && VERIF_ONLY="$hits" python3 check.py $pid --tier thorough > $out/check_${pid}_thorough.txt 2>$out/check_${pid}_thorough.err; echo "exit=$? (tier thorough, restricted to the harnesses the native sweep flagged: $hits)" >> $out/check_${pid}_thorough.txt)
-    if grep -q "^VIOLATION" $out/check_${pid}_thorough.txt; then cp $out/check_${pid}_thorough.txt $out/check_$pid.txt; fi
-  fi
-fi
-if [ -z "$hits" ] || { ! grep -q "^VIOLATION" $out/check_$pid.txt && grep -q "no obligation was generated" $out/check_$pid.txt; }; then
-  (cd $V && python3 check.py $pid --tier $tier > $out/check_$pid.txt 2>$out/check_$pid.err; echo "exit=$? (tier $tier, full check; native sweep flagged nothing the restricted runs could decide)" >> $out/check_$pid.txt)
-fi
-cif [ -n "$hits" ]; then
-  (cd $V && VERIF_ONLY="$hits" python3 check.py $pid --tier $tier > $out/check_$pid.txt 2>$out/check_$pid.err; echo "exit=$? (tier $tier, restricted to the harnesses the native sweep flagged: $hits)" >> $out/check_$pid.txt)
-  if ! grep -q "^VIOLATION" $out/check_$pid.txt && [ "$tier" = quick ]; then
-    # the flagged harnesses may belong to the thorough tier only (larger bounds, slow ones)
-    (cd $V && VERIF_ONLY="$hits" python3 check.py $pid --tier thorough > $out/check_${pid}_thorough.txt 2>$out/check_${pid}_thorough.err; echo "exit=$? (tier thorough, restricted to the harnesses the native sweep flagged: $hits)" >> $out/check_${pid}_thorough.txt)
-    if grep -q "^VIOLATION" $out/check_${pid}_thorough.txt; then cp $out/check_${pid}_thorough.txt $out/check_$pid.txt; fi
-  fi
-fi
-if [ -z "$hits" ] || { ! grep -q "^VIOLATION" $out/check_$pid.txt && grep -q "no obligation was generated" $out/check_$pid.txt; }; then
-  (cd $V && python3 check.py $pid --tier $tier > $out/check_$pid.txt 2>$out/check_$pid.err; echo "exit=$? (tier $tier, full check; native sweep flagged nothing the restricted runs could decide)" >> $out/check_$pid.txt)
-fi
-kif [ -n "$hits" ]; then
-  (cd $V && VERIF_ONLY="$hits" python3 check.py $pid --tier $tier > $out/check_$pid.txt 2>$out/check_$pid.err; echo "exit=$? (tier $tier, restricted to the harnesses the native sweep flagged: $hits)" >> $out/check_$pid.txt)
-  if ! grep -q "^VIOLATION" $out/check_$pid.txt && [ "$tier" = quick ]; then
-    # the flagged harnesses may belong to the thorough tier only (larger bounds, slow ones)
-    (cd $V && VERIF_ONLY="$hits" python3 check.py $pid --tier thorough > $out/check_${pid}_thorough.txt 2>$out/check_${pid}_thorough.err; echo "exit=$? (tier thorough, restricted to the harnesses the native sweep flagged: $hits)" >> $out/check_${pid}_thorough.txt)
-    if grep -q "^VIOLATION" $out/check_${pid}_thorough.txt; then cp $out/check_${pid}_thorough.txt $out/check_$pid.txt; fi
-  fi
-fi
-if [ -z "$hits" ] || { ! grep -q "^VIOLATION" $out/check_$pid.txt && grep -q "no obligation was generated" $out/check_$pid.txt; }; then
-  (cd $V && python3 check.py $pid --tier $tier > $out/check_$pid.txt 2>$out/check_$pid.err; echo "exit=$? (tier $tier, full check; native sweep flagged nothing the restricted runs could decide)" >> $out/check_$pid.txt)
-fi
- if [ -n "$hits" ]; then
-  (cd $V && VERIF_ONLY="$hits" python3 check.py $pid --tier $tier > $out/check_$pid.txt 2>$out/check_$pid.err; echo "exit=$? (tier $tier, restricted to the harnesses the native sweep flagged: $hits)" >> $out/check_$pid.txt)
-  if ! grep -q "^VIOLATION" $out/check_$pid.txt && [ "$tier" = quick ]; then
-    # the flagged harnesses may belong to the thorough tier only (larger bounds, slow ones)
-    (cd $V && VERIF_ONLY="$hits" python3 check.py $pid --tier thorough > $out/check_${pid}_thorough.txt 2>$out/check_${pid}_thorough.err; echo "exit=$? (tier thorough, restricted to the harnesses the native sweep flagged: $hits)" >> $out/check_${pid}_thorough.txt)
-    if grep -q "^VIOLATION" $out/check_${pid}_thorough.txt; then cp $out/check_${pid}_thorough.txt $out/check_$pid.txt; fi
-  fi
-fi
-if [ -z "$hits" ] || { ! grep -q "^VIOLATION" $out/check_$pid.txt && grep -q "no obligation was generated" $out/check_$pid.txt; }; then
-  (cd $V && python3 check.py $pid --tier $tier > $out/check_$pid.txt 2>$out/check_$pid.err; echo "exit=$? (tier $tier, full check; native sweep flagged nothing the restricted runs could decide)" >> $out/check_$pid.txt)
-fi
-(if [ -n "$hits" ]; then
-  (cd $V && VERIF_ONLY="$hits" python3 check.py $pid --tier $tier > $out/check_$pid.txt 2>$out/check_$pid.err; echo "exit=$? (tier $tier, restricted to the harnesses the native sweep flagged: $hits)" >> $out/check_$pid.txt)
-  if ! grep -q "^VIOLATION" $out/check_$pid.txt && [ "$tier" = quick ]; then
-    # the flagged harnesses may belong to the thorough tier only (larger bounds, slow ones)
-    (cd $V && VERIF_ONLY="$hits" python3 check.py $pid --tier thorough > $out/check_${pid}_thorough.txt 2>$out/check_${pid}_thorough.err; echo "exit=$? (tier thorough, restricted to the harnesses the native sweep flagged: $hits)" >> $out/check_${pid}_thorough.txt)
-    if grep -q "^VIOLATION" $out/check_${pid}_thorough.txt; then cp $out/check_${pid}_thorough.txt $out/check_$pid.txt; fi
-  fi
-fi
-if [ -z "$hits" ] || { ! grep -q "^VIOLATION" $out/check_$pid.txt && grep -q "no obligation was generated" $out/check_$pid.txt; }; then
-  (cd $V && python3 check.py $pid --tier $tier > $out/check_$pid.txt 2>$out/check_$pid.err; echo "exit=$? (tier $tier, full check; native sweep flagged nothing the restricted runs could decide)" >> $out/check_$pid.txt)
-fi
-Kif [ -n "$hits" ]; then
-  (cd $V && VERIF_ONLY="$hits" python3 check.py $pid --tier $tier > $out/check_$pid.txt 2>$out/check_$pid.err; echo "exit=$? (tier $tier, restricted to the harnesses the native sweep flagged: $hits)" >> $out/check_$pid.txt)
-  if ! grep -q "^VIOLATION" $out/check_$pid.txt && [ "$tier" = quick ]; then
-    # the flagged harnesses may belong to the thorough tier only (larger bounds, slow ones)
-    (cd $V && VERIF_ONLY="$hits" python3 check.py $pid --tier thorough > $out/check_${pid}_thorough.txt 2>$out/check_${pid}_thorough.err; echo "exit=$? (tier thorough, restricted to the harnesses the native sweep flagged: $hits)" >> $out/check_${pid}_thorough.txt)
-    if grep -q "^VIOLATION" $out/check_${pid}_thorough.txt; then cp $out/check_${pid}_thorough.txt $out/check_$pid.txt; fi
-  fi
-fi
-if [ -z "$hits" ] || { ! grep -q "^VIOLATION" $out/check_$pid.txt && grep -q "no obligation was generated" $out/check_$pid.txt; }; then
-  (cd $V && python3 check.py $pid --tier $tier > $out/check_$pid.txt 2>$out/check_$pid.err; echo "exit=$? (tier $tier, full check; native sweep flagged nothing the restricted runs could decide)" >> $out/check_$pid.txt)
-fi
-aif [ -n "$hits" ]; then
-  (cd $V && VERIF_ONLY="$hits" python3 check.py $pid --tier $tier > $out/check_$pid.txt 2>$out/check_$pid.err; echo "exit=$? (tier $tier, restricted to the harnesses the native sweep flagged: $hits)" >> $out/check_$pid.txt)
-  if ! grep -q "^VIOLATION" $out/check_$pid.txt && [ "$tier" = quick ]; then
-    # the flagged harnesses may belong to the thorough tier only (larger bounds, slow ones)
-    (cd $V && VERIF_ONLY="$hits" python3 check.py $pid --tier thorough > $out/check_${pid}_thorough.txt 2>$out/check_${pid}_thorough.err; echo "exit=$? (tier thorough, restricted to the harnesses the native sweep flagged: $hits)" >> $out/check_${pid}_thorough.txt)
-    if grep -q "^VIOLATION" $out/check_${pid}_thorough.txt; then cp $out/check_${pid}_thorough.txt $out/check_$pid.txt; fi
-  fi
-fi
-if [ -z "$hits" ] || { ! grep -q "^VIOLATION" $out/check_$pid.txt && grep -q "no obligation was generated" $out/check_$pid.txt; }; then
-  (cd $V && python3 check.py $pid --tier $tier > $out/check_$pid.txt 2>$out/check_$pid.err; echo "exit=$? (tier $tier, full check; native sweep flagged nothing the restricted runs could decide)" >> $out/check_$pid.txt)
-fi
-nif [ -n "$hits" ]; then
-  (cd $V && VERIF_ONLY="$hits" python3 check.py $pid --tier $tier > $out/check_$pid.txt 2>$out/check_$pid.err; echo "exit=$? (tier $tier, restricted to the harnesses the native sweep flagged: $hits)" >> $out/check_$pid.txt)
-  if ! grep -q "^VIOLATION" $out/check_$pid.txt && [ "$tier" = quick ]; then
-    # the flagged harnesses may belong to the thorough tier only (larger bounds, slow ones)
-    (cd $V && VERIF_ONLY="$hits" python3 check.py $pid --tier thorough > $out/check_${pid}_thorough.txt 2>$out/check_${pid}_thorough.err; echo "exit=$? (tier thorough, restricted to the harnesses the native sweep flagged: $hits)" >> $out/check_${pid}_thorough.txt)
-    if grep -q "^VIOLATION" $out/check_${pid}_thorough.txt; then cp $out/check_${pid}_thorough.txt $out/check_$pid.txt; fi
-  fi
-fi
-if [ -z "$hits" ] || { ! grep -q "^VIOLATION" $out/check_$pid.txt && grep -q "no obligation was generated" $out/check_$pid.txt; }; then
-  (cd $V && python3 check.py $pid --tier $tier > $out/check_$pid.txt 2>$out/check_$pid.err; echo "exit=$? (tier $tier, full check; native sweep flagged nothing the restricted runs could decide)" >> $out/check_$pid.txt)
-fi
-iif [ -n "$hits" ]; then
-  (cd $V && VERIF_ONLY="$hits" python3 check.py $pid --tier $tier > $out/check_$pid.txt 2>$out/check_$pid.err; echo "exit=$? (tier $tier, restricted to the harnesses the native sweep flagged: $hits)" >> $out/check_$pid.txt)
-  if ! grep -q "^VIOLATION" $out/check_$pid.txt && [ "$tier" = quick ]; then
-    # the flagged harnesses may belong to the thorough tier only (larger bounds, slow ones)
-    (cd $V && VERIF_ONLY="$hits" python3 check.py $pid --tier thorough > $out/check_${pid}_thorough.txt 2>$out/check_${pid}_thorough.err; echo "exit=$? (tier thorough, restricted to the harnesses the native sweep flagged: $hits)" >> $out/check_${pid}_thorough.txt)
-    if grep -q "^VIOLATION" $out/check_${pid}_thorough.txt; then cp $out/check_${pid}_thorough.txt $out/check_$pid.txt; fi
-  fi
-fi
-if [ -z "$hits" ] || { ! grep -q "^VIOLATION" $out/check_$pid.txt && grep -q "no obligation was generated" $out/check_$pid.txt; }; then
-  (cd $V && python3 check.py $pid --tier $tier > $out/check_$pid.txt 2>$out/check_$pid.err; echo "exit=$? (tier $tier, full check; native sweep flagged nothing the restricted runs could decide)" >> $out/check_$pid.txt)
-fi
-)if [ -n "$hits" ]; then
-  (cd $V && VERIF_ONLY="$hits" python3 check.py $pid --tier $tier > $out/check_$pid.txt 2>$out/check_$pid.err; echo "exit=$? (tier $tier, restricted to the harnesses the native sweep flagged: $hits)" >> $out/check_$pid.txt)
-  if ! grep -q "^VIOLATION" $out/check_$pid.txt && [ "$tier" = quick ]; then
-    # the flagged harnesses may belong to the thorough tier only (larger bounds, slow ones)
-    (cd $V && VERIF_ONLY="$hits" python3 check.py $pid --tier thorough > $out/check_${pid}_thorough.txt 2>$out/check_${pid}_thorough.err; echo "exit=$? (tier thorough, restricted to the harnesses the native sweep flagged: $hits)" >> $out/check_${pid}_thorough.txt)
-    if grep -q "^VIOLATION" $out/check_${pid}_thorough.txt; then cp $out/check_${pid}_thorough.txt $out/check_$pid.txt; fi
-  fi
-fi
-if [ -z "$hits" ] || { ! grep -q "^VIOLATION" $out/check_$pid.txt && grep -q "no obligation was generated" $out/check_$pid.txt; }; then
-  (cd $V && python3 check.py $pid --tier $tier > $out/check_$pid.txt 2>$out/check_$pid.err; echo "exit=$? (tier $tier, full check; native sweep flagged nothing the restricted runs could decide)" >> $out/check_$pid.txt)
-fi
- if [ -n "$hits" ]; then
-  (cd $V && VERIF_ONLY="$hits" python3 check.py $pid --tier $tier > $out/check_$pid.txt 2>$out/check_$pid.err; echo "exit=$? (tier $tier, restricted to the harnesses the native sweep flagged: $hits)" >> $out/check_$pid.txt)
-  if ! grep -q "^VIOLATION" $out/check_$pid.txt && [ "$tier" = quick ]; then
-    # the flagged harnesses may belong to the thorough tier only (larger bounds, slow ones)
-    (cd $V && VERIF_ONLY="$hits" python3 check.py $pid --tier thorough > $out/check_${pid}_thorough.txt 2>$out/check_${pid}_thorough.err; echo "exit=$? (tier thorough, restricted to the harnesses the native sweep flagged: $hits)" >> $out/check_${pid}_thorough.txt)
-    if grep -q "^VIOLATION" $out/check_${pid}_thorough.txt; then cp $out/check_${pid}_thorough.txt $out/check_$pid.txt; fi
-  fi
-fi
-if [ -z "$hits" ] || { ! grep -q "^VIOLATION" $out/check_$pid.txt && grep -q "no obligation was generated" $out/check_$pid.txt; }; then
-  (cd $V && python3 check.py $pid --tier $tier > $out/check_$pid.txt 2>$out/check_$pid.err; echo "exit=$? (tier $tier, full check; native sweep flagged nothing the restricted runs could decide)" >> $out/check_$pid.txt)
-fi
-oif [ -n "$hits" ]; then
-  (cd $V && VERIF_ONLY="$hits" python3 check.py $pid --tier $tier > $out/check_$pid.txt 2>$out/check_$pid.err; echo "exit=$? (tier $tier, restricted to the harnesses the native sweep flagged: $hits)" >> $out/check_$pid.txt)
-  if ! grep -q "^VIOLATION" $out/check_$pid.txt && [ "$tier" = quick ]; then
-    # the flagged harnesses may belong to the thorough tier only (larger bounds, slow ones)
-    (cd $V && VERIF_ONLY="$hits" python3 check.py $pid --tier thorough > $out/check_${pid}_thorough.txt 2>$out/check_${pid}_thorough.err; echo "exit=$? (tier thorough, restricted to the harnesses the native sweep flagged: $hits)" >> $out/check_${pid}_thorough.txt)
-    if grep -q "^VIOLATION" $out/check_${pid}_thorough.txt; then cp $out/check_${pid}_thorough.txt $out/check_$pid.txt; fi
-  fi
-fi
-if [ -z "$hits" ] || { ! grep -q "^VIOLATION" $out/check_$pid.txt && grep -q "no obligation was generated" $out/check_$pid.txt; }; then
-  (cd $V && python3 check.py $pid --tier $tier > $out/check_$pid.txt 2>$out/check_$pid.err; echo "exit=$? (tier $tier, full check; native sweep flagged nothing the restricted runs could decide)" >> $out/check_$pid.txt)
-fi
-nif [ -n "$hits" ]; then
-  (cd $V && VERIF_ONLY="$hits" python3 check.py $pid --tier $tier > $out/check_$pid.txt 2>$out/check_$pid.err; echo "exit=$? (tier $tier, restricted to the harnesses the native sweep flagged: $hits)" >> $out/check_$pid.txt)
-  if ! grep -q "^VIOLATION" $out/check_$pid.txt && [ "$tier" = quick ]; then
-    # the flagged harnesses may belong to the thorough tier only (larger bounds, slow ones)
-    (cd $V && VERIF_ONLY="$hits" python3 check.py $pid --tier thorough > $out/check_${pid}_thorough.txt 2>$out/check_${pid}_thorough.err; echo "exit=$? (tier thorough, restricted to the harnesses the native sweep flagged: $hits)" >> $out/check_${pid}_thorough.txt)
-    if grep -q "^VIOLATION" $out/check_${pid}_thorough.txt; then cp $out/check_${pid}_thorough.txt $out/check_$pid.txt; fi
-  fi
-fi
-if [ -z "$hits" ] || { ! grep -q "^VIOLATION" $out/check_$pid.txt && grep -q "no obligation was generated" $out/check_$pid.txt; }; then
-  (cd $V && python3 check.py $pid --tier $tier > $out/check_$pid.txt 2>$out/check_$pid.err; echo "exit=$? (tier $tier, full check; native sweep flagged nothing the restricted runs could decide)" >> $out/check_$pid.txt)
-fi
- if [ -n "$hits" ]; then
-  (cd $V && VERIF_ONLY="$hits" python3 check.py $pid --tier $tier > $out/check_$pid.txt 2>$out/check_$pid.err; echo "exit=$? (tier $tier, restricted to the harnesses the native sweep flagged: $hits)" >> $out/check_$pid.txt)
-  if ! grep -q "^VIOLATION" $out/check_$pid.txt && [ "$tier" = quick ]; then
-    # the flagged harnesses may belong to the thorough tier only (larger bounds, slow ones)
-    (cd $V && VERIF_ONLY="$hits" python3 check.py $pid --tier thorough > $out/check_${pid}_thorough.txt 2>$out/check_${pid}_thorough.err; echo "exit=$? (tier thorough, restricted to the harnesses the native sweep flagged: $hits)" >> $out/check_${pid}_thorough.txt)
-    if grep -q "^VIOLATION" $out/check_${pid}_thorough.txt; then cp $out/check_${pid}_thorough.txt $out/check_$pid.txt; fi
-  fi
-fi
-if [ -z "$hits" ] || { ! grep -q "^VIOLATION" $out/check_$pid.txt && grep -q "no obligation was generated" $out/check_$pid.txt; }; then
-  (cd $V && python3 check.py $pid --tier $tier > $out/check_$pid.txt 2>$out/check_$pid.err; echo "exit=$? (tier $tier, full check; native sweep flagged nothing the restricted runs could decide)" >> $out/check_$pid.txt)
-fi
-tif [ -n "$hits" ]; then
-  (cd $V && VERIF_ONLY="$hits" python3 check.py $pid --tier $tier > $out/check_$pid.txt 2>$out/check_$pid.err; echo "exit=$? (tier $tier, restricted to the harnesses the native sweep flagged: $hits)" >> $out/check_$pid.txt)
-  if ! grep -q "^VIOLATION" $out/check_$pid.txt && [ "$tier" = quick ]; then
-    # the flagged harnesses may belong to the thorough tier only (larger bounds, slow ones)
-    (cd $V && VERIF_ONLY="$hits" python3 check.py $pid --tier thorough > $out/check_${pid}_thorough.txt 2>$out/check_${pid}_thorough.err; echo "exit=$? (tier thorough, restricted to the harnesses the native sweep flagged: $hits)" >> $out/check_${pid}_thorough.txt)
-    if grep -q "^VIOLATION" $out/check_${pid}_thorough.txt; then cp $out/check_${pid}_thorough.txt $out/check_$pid.txt; fi
-  fi
-fi
-if [ -z "$hits" ] || { ! grep -q "^VIOLATION" $out/check_$pid.txt && grep -q "no obligation was generated" $out/check_$pid.txt; }; then
-  (cd $V && python3 check.py $pid --tier $tier > $out/check_$pid.txt 2>$out/check_$pid.err; echo "exit=$? (tier $tier, full check; native sweep flagged nothing the restricted runs could decide)" >> $out/check_$pid.txt)
-fi
-hif [ -n "$hits" ]; then
-  (cd $V && VERIF_ONLY="$hits" python3 check.py $pid --tier $tier > $out/check_$pid.txt 2>$out/check_$pid.err; echo "exit=$? (tier $tier, restricted to the harnesses the native sweep flagged: $hits)" >> $out/check_$pid.txt)
-  if ! grep -q "^VIOLATION" $out/check_$pid.txt && [ "$tier" = quick ]; then
-    # the flagged harnesses may belong to the thorough tier only (larger bounds, slow ones)
-    (cd $V && VERIF_ONLY="$hits" python3 check.py $pid --tier thorough > $out/check_${pid}_thorough.txt 2>$out/check_${pid}_thorough.err; echo "exit=$? (tier thorough, restricted to the harnesses the native sweep flagged: $hits)" >> $out/check_${pid}_thorough.txt)
-    if grep -q "^VIOLATION" $out/check_${pid}_thorough.txt; then cp $out/check_${pid}_thorough.txt $out/check_$pid.txt; fi
-  fi
-fi
-if [ -z "$hits" ] || { ! grep -q "^VIOLATION" $out/check_$pid.txt && grep -q "no obligation was generated" $out/check_$pid.txt; }; then
-  (cd $V && python3 check.py $pid --tier $tier > $out/check_$pid.txt 2>$out/check_$pid.err; echo "exit=$? (tier $tier, full check; native sweep flagged nothing the restricted runs could decide)" >> $out/check_$pid.txt)
-fi
-eif [ -n "$hits" ]; then
-  (cd $V && VERIF_ONLY="$hits" python3 check.py $pid --tier $tier > $out/check_$pid.txt 2>$out/check_$pid.err; echo "exit=$? (tier $tier, restricted to the harnesses the native sweep flagged: $hits)" >> $out/check_$pid.txt)
-  if ! grep -q "^VIOLATION" $out/check_$pid.txt && [ "$tier" = quick ]; then
-    # the flagged harnesses may belong to the thorough tier only (larger bounds, slow ones)
-    (cd $V && VERIF_ONLY="$hits" python3 check.py $pid --tier thorough > $out/check_${pid}_thorough.txt 2>$out/check_${pid}_thorough.err; echo "exit=$? (tier thorough, restricted to the harnesses the native sweep flagged: $hits)" >> $out/check_${pid}_thorough.txt)
-    if grep -q "^VIOLATION" $out/check_${pid}_thorough.txt; then cp $out/check_${pid}_thorough.txt $out/check_$pid.txt; fi
-  fi
-fi
-if [ -z "$hits" ] || { ! grep -q "^VIOLATION" $out/check_$pid.txt && grep -q "no obligation was generated" $out/check_$pid.txt; }; then
-  (cd $V && python3 check.py $pid --tier $tier > $out/check_$pid.txt 2>$out/check_$pid.err; echo "exit=$? (tier $tier, full check; native sweep flagged nothing the restricted runs could decide)" >> $out/check_$pid.txt)
-fi
-
-if [ -n "$hits" ]; then
-  (cd $V && VERIF_ONLY="$hits" python3 check.py $pid --tier $tier > $out/check_$pid.txt 2>$out/check_$pid.err; echo "exit=$? (tier $tier, restricted to the harnesses the native sweep flagged: $hits)" >> $out/check_$pid.txt)
-  if ! grep -q "^VIOLATION" $out/check_$pid.txt && [ "$tier" = quick ]; then
-    # the flagged harnesses may belong to the thorough tier only (larger bounds, slow ones)
-    (cd $V && VERIF_ONLY="$hits" python3 check.py $pid --tier thorough > $out/check_${pid}_thorough.txt 2>$out/check_${pid}_thorough.err; echo "exit=$? (tier thorough, restricted to the harnesses the native sweep flagged: $hits)" >> $out/check_${pid}_thorough.txt)
-    if grep -q "^VIOLATION" $out/check_${pid}_thorough.txt; then cp $out/check_${pid}_thorough.txt $out/check_$pid.txt; fi
-  fi
-fi
-if [ -z "$hits" ] || { ! grep -q "^VIOLATION" $out/check_$pid.txt && grep -q "no obligation was generated" $out/check_$pid.txt; }; then
-  (cd $V && python3 check.py $pid --tier $tier > $out/check_$pid.txt 2>$out/check_$pid.err; echo "exit=$? (tier $tier, full check; native sweep flagged nothing the restricted runs could decide)" >> $out/check_$pid.txt)
-fi
-#if [ -n "$hits" ]; then
-  (cd $V && VERIF_ONLY="$hits" python3 check.py $pid --tier $tier > $out/check_$pid.txt 2>$out/check_$pid.err; echo "exit=$? (tier $tier, restricted to the harnesses the native sweep flagged: $hits)" >> $out/check_$pid.txt)
-  if ! grep -q "^VIOLATION" $out/check_$pid.txt && [ "$tier" = quick ]; then
-    # the flagged harnesses may belong to the thorough tier only (larger bounds, slow ones)
-    (cd $V && VERIF_ONLY="$hits" python3 check.py $pid --tier thorough > $out/check_${pid}_thorough.txt 2>$out/check_${pid}_thorough.err; echo "exit=$? (tier thorough, restricted to the harnesses the native sweep flagged: $hits)" >> $out/check_${pid}_thorough.txt)
-    if grep -q "^VIOLATION" $out/check_${pid}_thorough.txt; then cp $out/check_${pid}_thorough.txt $out/check_$pid.txt; fi
-  fi
-fi
-if [ -z "$hits" ] || { ! grep -q "^VIOLATION" $out/check_$pid.txt && grep -q "no obligation was generated" $out/check_$pid.txt; }; then
-  (cd $V && python3 check.py $pid --tier $tier > $out/check_$pid.txt 2>$out/check_$pid.err; echo "exit=$? (tier $tier, full check; native sweep flagged nothing the restricted runs could decide)" >> $out/check_$pid.txt)
-fi
- if [ -n "$hits" ]; then
-  (cd $V && VERIF_ONLY="$hits" python3 check.py $pid --tier $tier > $out/check_$pid.txt 2>$out/check_$pid.err; echo "exit=$? (tier $tier, restricted to the harnesses the native sweep flagged: $hits)" >> $out/check_$pid.txt)
-  if ! grep -q "^VIOLATION" $out/check_$pid.txt && [ "$tier" = quick ]; then
-    # the flagged harnesses may belong to the thorough tier only (larger bounds, slow ones)
-    (cd $V && VERIF_ONLY="$hits" python3 check.py $pid --tier thorough > $out/check_${pid}_thorough.txt 2>$out/check_${pid}_thorough.err; echo "exit=$? (tier thorough, restricted to the harnesses the native sweep flagged: $hits)" >> $out/check_${pid}_thorough.txt)
-    if grep -q "^VIOLATION" $out/check_${pid}_thorough.txt; then cp $out/check_${pid}_thorough.txt $out/check_$pid.txt; fi
-  fi
-fi
-if [ -z "$hits" ] || { ! grep -q "^VIOLATION" $out/check_$pid.txt && grep -q "no obligation was generated" $out/check_$pid.txt; }; then
-  (cd $V && python3 check.py $pid --tier $tier > $out/check_$pid.txt 2>$out/check_$pid.err; echo "exit=$? (tier $tier, full check; native sweep flagged nothing the restricted runs could decide)" >> $out/check_$pid.txt)
-fi
-cif [ -n "$hits" ]; then
-  (cd $V && VERIF_ONLY="$hits" python3 check.py $pid --tier $tier > $out/check_$pid.txt 2>$out/check_$pid.err; echo "exit=$? (tier $tier, restricted to the harnesses the native sweep flagged: $hits)" >> $out/check_$pid.txt)
-  if ! grep -q "^VIOLATION" $out/check_$pid.txt && [ "$tier" = quick ]; then
-    # the flagged harnesses may belong to the thorough tier only (larger bounds, slow ones)
-    (cd $V && VERIF_ONLY="$hits" python3 check.py $pid --tier thorough > $out/check_${pid}_thorough.txt 2>$out/check_${pid}_thorough.err; echo "exit=$? (tier thorough, restricted to the harnesses the native sweep flagged: $hits)" >> $out/check_${pid}_thorough.txt)
-    if grep -q "^VIOLATION" $out/check_${pid}_thorough.txt; then cp $out/check_${pid}_thorough.txt $out/check_$pid.txt; fi
-  fi
-fi
-if [ -z "$hits" ] || { ! grep -q "^VIOLATION" $out/check_$pid.txt && grep -q "no obligation was generated" $out/check_$pid.txt; }; then
-  (cd $V && python3 check.py $pid --tier $tier > $out/check_$pid.txt 2>$out/check_$pid.err; echo "exit=$? (tier $tier, full check; native sweep flagged nothing the restricted runs could decide)" >> $out/check_$pid.txt)
-fi
-hif [ -n "$hits" ]; then
-  (cd $V && VERIF_ONLY="$hits" python3 check.py $pid --tier $tier > $out/check_$pid.txt 2>$out/check_$pid.err; echo "exit=$? (tier $tier, restricted to the harnesses the native sweep flagged: $hits)" >> $out/check_$pid.txt)
-  if ! grep -q "^VIOLATION" $out/check_$pid.txt && [ "$tier" = quick ]; then
-    # the flagged harnesses may belong to the thorough tier only (larger bounds, slow ones)
-    (cd $V && VERIF_ONLY="$hits" python3 check.py $pid --tier thorough > $out/check_${pid}_thorough.txt 2>$out/check_${pid}_thorough.err; echo "exit=$? (tier thorough, restricted to the harnesses the native sweep flagged: $hits)" >> $out/check_${pid}_thorough.txt)
-    if grep -q "^VIOLATION" $out/check_${pid}_thorough.txt; then cp $out/check_${pid}_thorough.txt $out/check_$pid.txt; fi
-  fi
-fi
-if [ -z "$hits" ] || { ! grep -q "^VIOLATION" $out/check_$pid.txt && grep -q "no obligation was generated" $out/check_$pid.txt; }; then
-  (cd $V && python3 check.py $pid --tier $tier > $out/check_$pid.txt 2>$out/check_$pid.err; echo "exit=$? (tier $tier, full check; native sweep flagged nothing the restricted runs could decide)" >> $out/check_$pid.txt)
-fi
-aif [ -n "$hits" ]; then
-  (cd $V && VERIF_ONLY="$hits" python3 check.py $pid --tier $tier > $out/check_$pid.txt 2>$out/check_$pid.err; echo "exit=$? (tier $tier, restricted to the harnesses the native sweep flagged: $hits)" >> $out/check_$pid.txt)
-  if ! grep -q "^VIOLATION" $out/check_$pid.txt && [ "$tier" = quick ]; then
-    # the flagged harnesses may belong to the thorough tier only (larger bounds, slow ones)
-    (cd $V && VERIF_ONLY="$hits" python3 check.py $pid --tier thorough > $out/check_${pid}_thorough.txt 2>$out/check_${pid}_thorough.err; echo "exit=$? (tier thorough, restricted to the harnesses the native sweep flagged: $hits)" >> $out/check_${pid}_thorough.txt)
-    if grep -q "^VIOLATION" $out/check_${pid}_thorough.txt; then cp $out/check_${pid}_thorough.txt $out/check_$pid.txt; fi
-  fi
-fi
-if [ -z "$hits" ] || { ! grep -q "^VIOLATION" $out/check_$pid.txt && grep -q "no obligation was generated" $out/check_$pid.txt; }; then
-  (cd $V && python3 check.py $pid --tier $tier > $out/check_$pid.txt 2>$out/check_$pid.err; echo "exit=$? (tier $tier, full check; native sweep flagged nothing the restricted runs could decide)" >> $out/check_$pid.txt)
-fi
-nif [ -n "$hits" ]; then
-  (cd $V && VERIF_ONLY="$hits" python3 check.py $pid --tier $tier > $out/check_$pid.txt 2>$out/check_$pid.err; echo "exit=$? (tier $tier, restricted to the harnesses the native sweep flagged: $hits)" >> $out/check_$pid.txt)
-  if ! grep -q "^VIOLATION" $out/check_$pid.txt && [ "$tier" = quick ]; then
-    # the flagged harnesses may belong to the thorough tier only (larger bounds, slow ones)
-    (cd $V && VERIF_ONLY="$hits" python3 check.py $pid --tier thorough > $out/check_${pid}_thorough.txt 2>$out/check_${pid}_thorough.err; echo "exit=$? (tier thorough, restricted to the harnesses the native sweep flagged: $hits)" >> $out/check_${pid}_thorough.txt)
-    if grep -q "^VIOLATION" $out/check_${pid}_thorough.txt; then cp $out/check_${pid}_thorough.txt $out/check_$pid.txt; fi
-  fi
-fi
-if [ -z "$hits" ] || { ! grep -q "^VIOLATION" $out/check_$pid.txt && grep -q "no obligation was generated" $out/check_$pid.txt; }; then
-  (cd $V && python3 check.py $pid --tier $tier > $out/check_$pid.txt 2>$out/check_$pid.err; echo "exit=$? (tier $tier, full check; native sweep flagged nothing the restricted runs could decide)" >> $out/check_$pid.txt)
-fi
-gif [ -n "$hits" ]; then
-  (cd $V && VERIF_ONLY="$hits" python3 check.py $pid --tier $tier > $out/check_$pid.txt 2>$out/check_$pid.err; echo "exit=$? (tier $tier, restricted to the harnesses the native sweep flagged: $hits)" >> $out/check_$pid.txt)
-  if ! grep -q "^VIOLATION" $out/check_$pid.txt && [ "$tier" = quick ]; then
-    # the flagged harnesses may belong to the thorough tier only (larger bounds, slow ones)
-    (cd $V && VERIF_ONLY="$hits" python3 check.py $pid --tier thorough > $out/check_${pid}_thorough.txt 2>$out/check_${pid}_thorough.err; echo "exit=$? (tier thorough, restricted to the harnesses the native sweep flagged: $hits)" >> $out/check_${pid}_thorough.txt)
-    if grep -q "^VIOLATION" $out/check_${pid}_thorough.txt; then cp $out/check_${pid}_thorough.txt $out/check_$pid.txt; fi
-  fi
-fi
-if [ -z "$hits" ] || { ! grep -q "^VIOLATION" $out/check_$pid.txt && grep -q "no obligation was generated" $out/check_$pid.txt; }; then
-  (cd $V && python3 check.py $pid --tier $tier > $out/check_$pid.txt 2>$out/check_$pid.err; echo "exit=$? (tier $tier, full check; native sweep flagged nothing the restricted runs could decide)" >> $out/check_$pid.txt)
-fi
-eif [ -n "$hits" ]; then
-  (cd $V && VERIF_ONLY="$hits" python3 check.py $pid --tier $tier > $out/check_$pid.txt 2>$out/check_$pid.err; echo "exit=$? (tier $tier, restricted to the harnesses the native sweep flagged: $hits)" >> $out/check_$pid.txt)
-  if ! grep -q "^VIOLATION" $out/check_$pid.txt && [ "$tier" = quick ]; then
-    # the flagged harnesses may belong to the thorough tier only (larger bounds, slow ones)
-    (cd $V && VERIF_ONLY="$hits" python3 check.py $pid --tier thorough > $out/check_${pid}_thorough.txt 2>$out/check_${pid}_thorough.err; echo "exit=$? (tier thorough, restricted to the harnesses the native sweep flagged: $hits)" >> $out/check_${pid}_thorough.txt)
-    if grep -q "^VIOLATION" $out/check_${pid}_thorough.txt; then cp $out/check_${pid}_thorough.txt $out/check_$pid.txt; fi
-  fi
-fi
-if [ -z "$hits" ] || { ! grep -q "^VIOLATION" $out/check_$pid.txt && grep -q "no obligation was generated" $out/check_$pid.txt; }; then
-  (cd $V && python3 check.py $pid --tier $tier > $out/check_$pid.txt 2>$out/check_$pid.err; echo "exit=$? (tier $tier, full check; native sweep flagged nothing the restricted runs could decide)" >> $out/check_$pid.txt)
-fi
-dif [ -n "$hits" ]; then
-  (cd $V && VERIF_ONLY="$hits" python3 check.py $pid --tier $tier > $out/check_$pid.txt 2>$out/check_$pid.err; echo "exit=$? (tier $tier, restricted to the harnesses the native sweep flagged: $hits)" >> $out/check_$pid.txt)
-  if ! grep -q "^VIOLATION" $out/check_$pid.txt && [ "$tier" = quick ]; then
-    # the flagged harnesses may belong to the thorough tier only (larger bounds, slow ones)
-    (cd $V && VERIF_ONLY="$hits" python3 check.py $pid --tier thorough > $out/check_${pid}_thorough.txt 2>$out/check_${pid}_thorough.err; echo "exit=$? (tier thorough, restricted to the harnesses the native sweep flagged: $hits)" >> $out/check_${pid}_thorough.txt)
-    if grep -q "^VIOLATION" $out/check_${pid}_thorough.txt; then cp $out/check_${pid}_thorough.txt $out/check_$pid.txt; fi
-  fi
-fi
-if [ -z "$hits" ] || { ! grep -q "^VIOLATION" $out/check_$pid.txt && grep -q "no obligation was generated" $out/check_$pid.txt; }; then
-  (cd $V && python3 check.py $pid --tier $tier > $out/check_$pid.txt 2>$out/check_$pid.err; echo "exit=$? (tier $tier, full check; native sweep flagged nothing the restricted runs could decide)" >> $out/check_$pid.txt)
-fi
- if [ -n "$hits" ]; then
-  (cd $V && VERIF_ONLY="$hits" python3 check.py $pid --tier $tier > $out/check_$pid.txt 2>$out/check_$pid.err; echo "exit=$? (tier $tier, restricted to the harnesses the native sweep flagged: $hits)" >> $out/check_$pid.txt)
-  if ! grep -q "^VIOLATION" $out/check_$pid.txt && [ "$tier" = quick ]; then
-    # the flagged harnesses may belong to the thorough tier only (larger bounds, slow ones)
-    (cd $V && VERIF_ONLY="$hits" python3 check.py $pid --tier thorough > $out/check_${pid}_thorough.txt 2>$out/check_${pid}_thorough.err; echo "exit=$? (tier thorough, restricted to the harnesses the native sweep flagged: $hits)" >> $out/check_${pid}_thorough.txt)
-    if grep -q "^VIOLATION" $out/check_${pid}_thorough.txt; then cp $out/check_${pid}_thorough.txt $out/check_$pid.txt; fi
-  fi
-fi
-if [ -z "$hits" ] || { ! grep -q "^VIOLATION" $out/check_$pid.txt && grep -q "no obligation was generated" $out/check_$pid.txt; }; then
-  (cd $V && python3 check.py $pid --tier $tier > $out/check_$pid.txt 2>$out/check_$pid.err; echo "exit=$? (tier $tier, full check; native sweep flagged nothing the restricted runs could decide)" >> $out/check_$pid.txt)
-fi
-tif [ -n "$hits" ]; then
-  (cd $V && VERIF_ONLY="$hits" python3 check.py $pid --tier $tier > $out/check_$pid.txt 2>$out/check_$pid.err; echo "exit=$? (tier $tier, restricted to the harnesses the native sweep flagged: $hits)" >> $out/check_$pid.txt)
-  if ! grep -q "^VIOLATION" $out/check_$pid.txt && [ "$tier" = quick ]; then
-    # the flagged harnesses may belong to the thorough tier only (larger bounds, slow ones)
-    (cd $V && VERIF_ONLY="$hits" python3 check.py $pid --tier thorough > $out/check_${pid}_thorough.txt 2>$out/check_${pid}_thorough.err; echo "exit=$? (tier thorough, restricted to the harnesses the native sweep flagged: $hits)" >> $out/check_${pid}_thorough.txt)
-    if grep -q "^VIOLATION" $out/check_${pid}_thorough.txt; then cp $out/check_${pid}_thorough.txt $out/check_$pid.txt; fi
-  fi
-fi
-if [ -z "$hits" ] || { ! grep -q "^VIOLATION" $out/check_$pid.txt && grep -q "no obligation was generated" $out/check_$pid.txt; }; then
-  (cd $V && python3 check.py $pid --tier $tier > $out/check_$pid.txt 2>$out/check_$pid.err; echo "exit=$? (tier $tier, full check; native sweep flagged nothing the restricted runs could decide)" >> $out/check_$pid.txt)
-fi
-rif [ -n "$hits" ]; then
-  (cd $V && VERIF_ONLY="$hits" python3 check.py $pid --tier $tier > $out/check_$pid.txt 2>$out/check_$pid.err; echo "exit=$? (tier $tier, restricted to the harnesses the native sweep flagged: $hits)" >> $out/check_$pid.txt)
-  if ! grep -q "^VIOLATION" $out/check_$pid.txt && [ "$tier" = quick ]; then
-    # the flagged harnesses may belong to the thorough tier only (larger bounds, slow ones)
-    (cd $V && VERIF_ONLY="$hits" python3 check.py $pid --tier thorough > $out/check_${pid}_thorough.txt 2>$out/check_${pid}_thorough.err; echo "exit=$? (tier thorough, restricted to the harnesses the native sweep flagged: $hits)" >> $out/check_${pid}_thorough.txt)
-    if grep -q "^VIOLATION" $out/check_${pid}_thorough.txt; then cp $out/check_${pid}_thorough.txt $out/check_$pid.txt; fi
-  fi
-fi
-if [ -z "$hits" ] || { ! grep -q "^VIOLATION" $out/check_$pid.txt && grep -q "no obligation was generated" $out/check_$pid.txt; }; then
-  (cd $V && python3 check.py $pid --tier $tier > $out/check_$pid.txt 2>$out/check_$pid.err; echo "exit=$? (tier $tier, full check; native sweep flagged nothing the restricted runs could decide)" >> $out/check_$pid.txt)
-fi
-eif [ -n "$hits" ]; then
-  (cd $V && VERIF_ONLY="$hits" python3 check.py $pid --tier $tier > $out/check_$pid.txt 2>$out/check_$pid.err; echo "exit=$? (tier $tier, restricted to the harnesses the native sweep flagged: $hits)" >> $out/check_$pid.txt)
-  if ! grep -q "^VIOLATION" $out/check_$pid.txt && [ "$tier" = quick ]; then
-    # the flagged harnesses may belong to the thorough tier only (larger bounds, slow ones)
-    (cd $V && VERIF_ONLY="$hits" python3 check.py $pid --tier thorough > $out/check_${pid}_thorough.txt 2>$out/check_${pid}_thorough.err; echo "exit=$? (tier thorough, restricted to the harnesses the native sweep flagged: $hits)" >> $out/check_${pid}_thorough.txt)
-    if grep -q "^VIOLATION" $out/check_${pid}_thorough.txt; then cp $out/check_${pid}_thorough.txt $out/check_$pid.txt; fi
-  fi
-fi
-if [ -z "$hits" ] || { ! grep -q "^VIOLATION" $out/check_$pid.txt && grep -q "no obligation was generated" $out/check_$pid.txt; }; then
-  (cd $V && python3 check.py $pid --tier $tier > $out/check_$pid.txt 2>$out/check_$pid.err; echo "exit=$? (tier $tier, full check; native sweep flagged nothing the restricted runs could decide)" >> $out/check_$pid.txt)
-fi
-eif [ -n "$hits" ]; then
-  (cd $V && VERIF_ONLY="$hits" python3 check.py $pid --tier $tier > $out/check_$pid.txt 2>$out/check_$pid.err; echo "exit=$? (tier $tier, restricted to the harnesses the native sweep flagged: $hits)" >> $out/check_$pid.txt)
-  if ! grep -q "^VIOLATION" $out/check_$pid.txt && [ "$tier" = quick ]; then
-    # the flagged harnesses may belong to the thorough tier only (larger bounds, slow ones)
-    (cd $V && VERIF_ONLY="$hits" python3 check.py $pid --tier thorough > $out/check_${pid}_thorough.txt 2>$out/check_${pid}_thorough.err; echo "exit=$? (tier thorough, restricted to the harnesses the native sweep flagged: $hits)" >> $out/check_${pid}_thorough.txt)
-    if grep -q "^VIOLATION" $out/check_${pid}_thorough.txt; then cp $out/check_${pid}_thorough.txt $out/check_$pid.txt; fi
-  fi
-fi
-if [ -z "$hits" ] || { ! grep -q "^VIOLATION" $out/check_$pid.txt && grep -q "no obligation was generated" $out/check_$pid.txt; }; then
-  (cd $V && python3 check.py $pid --tier $tier > $out/check_$pid.txt 2>$out/check_$pid.err; echo "exit=$? (tier $tier, full check; native sweep flagged nothing the restricted runs could decide)" >> $out/check_$pid.txt)
-fi
- if [ -n "$hits" ]; then
-  (cd $V && VERIF_ONLY="$hits" python3 check.py $pid --tier $tier > $out/check_$pid.txt 2>$out/check_$pid.err; echo "exit=$? (tier $tier, restricted to the harnesses the native sweep flagged: $hits)" >> $out/check_$pid.txt)
-  if ! grep -q "^VIOLATION" $out/check_$pid.txt && [ "$tier" = quick ]; then
-    # the flagged harnesses may belong to the thorough tier only (larger bounds, slow ones)
-    (cd $V && VERIF_ONLY="$hits" python3 check.py $pid --tier thorough > $out/check_${pid}_thorough.txt 2>$out/check_${pid}_thorough.err; echo "exit=$? (tier thorough, restricted to the harnesses the native sweep flagged: $hits)" >> $out/check_${pid}_thorough.txt)
-    if grep -q "^VIOLATION" $out/check_${pid}_thorough.txt; then cp $out/check_${pid}_thorough.txt $out/check_$pid.txt; fi
-  fi
-fi
-if [ -z "$hits" ] || { ! grep -q "^VIOLATION" $out/check_$pid.txt && grep -q "no obligation was generated" $out/check_$pid.txt; }; then
-  (cd $V && python3 check.py $pid --tier $tier > $out/check_$pid.txt 2>$out/check_$pid.err; echo "exit=$? (tier $tier, full check; native sweep flagged nothing the restricted runs could decide)" >> $out/check_$pid.txt)
-fi
--if [ -n "$hits" ]; then
-  (cd $V && VERIF_ONLY="$hits" python3 check.py $pid --tier $tier > $out/check_$pid.txt 2>$out/check_$pid.err; echo "exit=$? (tier $tier, restricted to the harnesses the native sweep flagged: $hits)" >> $out/check_$pid.txt)
-  if ! grep -q "^VIOLATION" $out/check_$pid.txt && [ "$tier" = quick ]; then
-    # the flagged harnesses may belong to the thorough tier only (larger bounds, slow ones)
-    (cd $V && VERIF_ONLY="$hits" python3 check.py $pid --tier thorough > $out/check_${pid}_thorough.txt 2>$out/check_${pid}_thorough.err; echo "exit=$? (tier thorough, restricted to the harnesses the native sweep flagged: $hits)" >> $out/check_${pid}_thorough.txt)
-    if grep -q "^VIOLATION" $out/check_${pid}_thorough.txt; then cp $out/check_${pid}_thorough.txt $out/check_$pid.txt; fi
-  fi
-fi
-if [ -z "$hits" ] || { ! grep -q "^VIOLATION" $out/check_$pid.txt && grep -q "no obligation was generated" $out/check_$pid.txt; }; then
-  (cd $V && python3 check.py $pid --tier $tier > $out/check_$pid.txt 2>$out/check_$pid.err; echo "exit=$? (tier $tier, full check; native sweep flagged nothing the restricted runs could decide)" >> $out/check_$pid.txt)
-fi
- if [ -n "$hits" ]; then
-  (cd $V && VERIF_ONLY="$hits" python3 check.py $pid --tier $tier > $out/check_$pid.txt 2>$out/check_$pid.err; echo "exit=$? (tier $tier, restricted to the harnesses the native sweep flagged: $hits)" >> $out/check_$pid.txt)
-  if ! grep -q "^VIOLATION" $out/check_$pid.txt && [ "$tier" = quick ]; then
-    # the flagged harnesses may belong to the thorough tier only (larger bounds, slow ones)
-    (cd $V && VERIF_ONLY="$hits" python3 check.py $pid --tier thorough > $out/check_${pid}_thorough.txt 2>$out/check_${pid}_thorough.err; echo "exit=$? (tier thorough, restricted to the harnesses the native sweep flagged: $hits)" >> $out/check_${pid}_thorough.txt)
-    if grep -q "^VIOLATION" $out/check_${pid}_thorough.txt; then cp $out/check_${pid}_thorough.txt $out/check_$pid.txt; fi
-  fi
-fi
-if [ -z "$hits" ] || { ! grep -q "^VIOLATION" $out/check_$pid.txt && grep -q "no obligation was generated" $out/check_$pid.txt; }; then
-  (cd $V && python3 check.py $pid --tier $tier > $out/check_$pid.txt 2>$out/check_$pid.err; echo "exit=$? (tier $tier, full check; native sweep flagged nothing the restricted runs could decide)" >> $out/check_$pid.txt)
-fi
-rif [ -n "$hits" ]; then
-  (cd $V && VERIF_ONLY="$hits" python3 check.py $pid --tier $tier > $out/check_$pid.txt 2>$out/check_$pid.err; echo "exit=$? (tier $tier, restricted to the harnesses the native sweep flagged: $hits)" >> $out/check_$pid.txt)
-  if ! grep -q "^VIOLATION" $out/check_$pid.txt && [ "$tier" = quick ]; then
-    # the flagged harnesses may belong to the thorough tier only (larger bounds, slow ones)
-    (cd $V && VERIF_ONLY="$hits" python3 check.py $pid --tier thorough > $out/check_${pid}_thorough.txt 2>$out/check_${pid}_thorough.err; echo "exit=$? (tier thorough, restricted to the harnesses the native sweep flagged: $hits)" >> $out/check_${pid}_thorough.txt)
-    if grep -q "^VIOLATION" $out/check_${pid}_thorough.txt; then cp $out/check_${pid}_thorough.txt $out/check_$pid.txt; fi
-  fi
-fi
-if [ -z "$hits" ] || { ! grep -q "^VIOLATION" $out/check_$pid.txt && grep -q "no obligation was generated" $out/check_$pid.txt; }; then
-  (cd $V && python3 check.py $pid --tier $tier > $out/check_$pid.txt 2>$out/check_$pid.err; echo "exit=$? (tier $tier, full check; native sweep flagged nothing the restricted runs could decide)" >> $out/check_$pid.txt)
-fi
-eif [ -n "$hits" ]; then
-  (cd $V && VERIF_ONLY="$hits" python3 check.py $pid --tier $tier > $out/check_$pid.txt 2>$out/check_$pid.err; echo "exit=$? (tier $tier, restricted to the harnesses the native sweep flagged: $hits)" >> $out/check_$pid.txt)
-  if ! grep -q "^VIOLATION" $out/check_$pid.txt && [ "$tier" = quick ]; then
-    # the flagged harnesses may belong to the thorough tier only (larger bounds, slow ones)
-    (cd $V && VERIF_ONLY="$hits" python3 check.py $pid --tier thorough > $out/check_${pid}_thorough.txt 2>$out/check_${pid}_thorough.err; echo "exit=$? (tier thorough, restricted to the harnesses the native sweep flagged: $hits)" >> $out/check_${pid}_thorough.txt)
-    if grep -q "^VIOLATION" $out/check_${pid}_thorough.txt; then cp $out/check_${pid}_thorough.txt $out/check_$pid.txt; fi
-  fi
-fi
-if [ -z "$hits" ] || { ! grep -q "^VIOLATION" $out/check_$pid.txt && grep -q "no obligation was generated" $out/check_$pid.txt; }; then
-  (cd $V && python3 check.py $pid --tier $tier > $out/check_$pid.txt 2>$out/check_$pid.err; echo "exit=$? (tier $tier, full check; native sweep flagged nothing the restricted runs could decide)" >> $out/check_$pid.txt)
-fi
-sif [ -n "$hits" ]; then
-  (cd $V && VERIF_ONLY="$hits" python3 check.py $pid --tier $tier > $out/check_$pid.txt 2>$out/check_$pid.err; echo "exit=$? (tier $tier, restricted to the harnesses the native sweep flagged: $hits)" >> $out/check_$pid.txt)
-  if ! grep -q "^VIOLATION" $out/check_$pid.txt && [ "$tier" = quick ]; then
-    # the flagged harnesses may belong to the thorough tier only (larger bounds, slow ones)
-    (cd $V && VERIF_ONLY="$hits" python3 check.py $pid --tier thorough > $out/check_${pid}_thorough.txt 2>$out/check_${pid}_thorough.err; echo "exit=$? (tier thorough, restricted to the harnesses the native sweep flagged: $hits)" >> $out/check_${pid}_thorough.txt)
-    if grep -q "^VIOLATION" $out/check_${pid}_thorough.txt; then cp $out/check_${pid}_thorough.txt $out/check_$pid.txt; fi
-  fi
-fi
-if [ -z "$hits" ] || { ! grep -q "^VIOLATION" $out/check_$pid.txt && grep -q "no obligation was generated" $out/check_$pid.txt; }; then
-  (cd $V && python3 check.py $pid --tier $tier > $out/check_$pid.txt 2>$out/check_$pid.err; echo "exit=$? (tier $tier, full check; native sweep flagged nothing the restricted runs could decide)" >> $out/check_$pid.txt)
-fi
-tif [ -n "$hits" ]; then
-  (cd $V && VERIF_ONLY="$hits" python3 check.py $pid --tier $tier > $out/check_$pid.txt 2>$out/check_$pid.err; echo "exit=$? (tier $tier, restricted to the harnesses the native sweep flagged: $hits)" >> $out/check_$pid.txt)
-  if ! grep -q "^VIOLATION" $out/check_$pid.txt && [ "$tier" = quick ]; then
-    # the flagged harnesses may belong to the thorough tier only (larger bounds, slow ones)
-    (cd $V && VERIF_ONLY="$hits" python3 check.py $pid --tier thorough > $out/check_${pid}_thorough.txt 2>$out/check_${pid}_thorough.err; echo "exit=$? (tier thorough, restricted to the harnesses the native sweep flagged: $hits)" >> $out/check_${pid}_thorough.txt)
-    if grep -q "^VIOLATION" $out/check_${pid}_thorough.txt; then cp $out/check_${pid}_thorough.txt $out/check_$pid.txt; fi
-  fi
-fi
-if [ -z "$hits" ] || { ! grep -q "^VIOLATION" $out/check_$pid.txt && grep -q "no obligation was generated" $out/check_$pid.txt; }; then
-  (cd $V && python3 check.py $pid --tier $tier > $out/check_$pid.txt 2>$out/check_$pid.err; echo "exit=$? (tier $tier, full check; native sweep flagged nothing the restricted runs could decide)" >> $out/check_$pid.txt)
-fi
-rif [ -n "$hits" ]; then
-  (cd $V && VERIF_ONLY="$hits" python3 check.py $pid --tier $tier > $out/check_$pid.txt 2>$out/check_$pid.err; echo "exit=$? (tier $tier, restricted to the harnesses the native sweep flagged: $hits)" >> $out/check_$pid.txt)
-  if ! grep -q "^VIOLATION" $out/check_$pid.txt && [ "$tier" = quick ]; then
-    # the flagged harnesses may belong to the thorough tier only (larger bounds, slow ones)
-    (cd $V && VERIF_ONLY="$hits" python3 check.py $pid --tier thorough > $out/check_${pid}_thorough.txt 2>$out/check_${pid}_thorough.err; echo "exit=$? (tier thorough, restricted to the harnesses the native sweep flagged: $hits)" >> $out/check_${pid}_thorough.txt)
-    if grep -q "^VIOLATION" $out/check_${pid}_thorough.txt; then cp $out/check_${pid}_thorough.txt $out/check_$pid.txt; fi
-  fi
-fi
-if [ -z "$hits" ] || { ! grep -q "^VIOLATION" $out/check_$pid.txt && grep -q "no obligation was generated" $out/check_$pid.txt; }; then
-  (cd $V && python3 check.py $pid --tier $tier > $out/check_$pid.txt 2>$out/check_$pid.err; echo "exit=$? (tier $tier, full check; native sweep flagged nothing the restricted runs could decide)" >> $out/check_$pid.txt)
-fi
-iif [ -n "$hits" ]; then
-  (cd $V && VERIF_ONLY="$hits" python3 check.py $pid --tier $tier > $out/check_$pid.txt 2>$out/check_$pid.err; echo "exit=$? (tier $tier, restricted to the harnesses the native sweep flagged: $hits)" >> $out/check_$pid.txt)
-  if ! grep -q "^VIOLATION" $out/check_$pid.txt && [ "$tier" = quick ]; then
-    # the flagged harnesses may belong to the thorough tier only (larger bounds, slow ones)
-    (cd $V && VERIF_ONLY="$hits" python3 check.py $pid --tier thorough > $out/check_${pid}_thorough.txt 2>$out/check_${pid}_thorough.err; echo "exit=$? (tier thorough, restricted to the harnesses the native sweep flagged: $hits)" >> $out/check_${pid}_thorough.txt)
-    if grep -q "^VIOLATION" $out/check_${pid}_thorough.txt; then cp $out/check_${pid}_thorough.txt $out/check_$pid.txt; fi
-  fi
-fi
-if [ -z "$hits" ] || { ! grep -q "^VIOLATION" $out/check_$pid.txt && grep -q "no obligation was generated" $out/check_$pid.txt; }; then
-  (cd $V && python3 check.py $pid --tier $tier > $out/check_$pid.txt 2>$out/check_$pid.err; echo "exit=$? (tier $tier, full check; native sweep flagged nothing the restricted runs could decide)" >> $out/check_$pid.txt)
-fi
-cif [ -n "$hits" ]; then
-  (cd $V && VERIF_ONLY="$hits" python3 check.py $pid --tier $tier > $out/check_$pid.txt 2>$out/check_$pid.err; echo "exit=$? (tier $tier, restricted to the harnesses the native sweep flagged: $hits)" >> $out/check_$pid.txt)
-  if ! grep -q "^VIOLATION" $out/check_$pid.txt && [ "$tier" = quick ]; then
-    # the flagged harnesses may belong to the thorough tier only (larger bounds, slow ones)
-    (cd $V && VERIF_ONLY="$hits" python3 check.py $pid --tier thorough > $out/check_${pid}_thorough.txt 2>$out/check_${pid}_thorough.err; echo "exit=$? (tier thorough, restricted to the harnesses the native sweep flagged: $hits)" >> $out/check_${pid}_thorough.txt)
-    if grep -q "^VIOLATION" $out/check_${pid}_thorough.txt; then cp $out/check_${pid}_thorough.txt $out/check_$pid.txt; fi
-  fi
-fi
-if [ -z "$hits" ] || { ! grep -q "^VIOLATION" $out/check_$pid.txt && grep -q "no obligation was generated" $out/check_$pid.txt; }; then
-  (cd $V && python3 check.py $pid --tier $tier > $out/check_$pid.txt 2>$out/check_$pid.err; echo "exit=$? (tier $tier, full check; native sweep flagged nothing the restricted runs could decide)" >> $out/check_$pid.txt)
-fi
-tif [ -n "$hits" ]; then
-  (cd $V && VERIF_ONLY="$hits" python3 check.py $pid --tier $tier > $out/check_$pid.txt 2>$out/check_$pid.err; echo "exit=$? (tier $tier, restricted to the harnesses the native sweep flagged: $hits)" >> $out/check_$pid.txt)
-  if ! grep -q "^VIOLATION" $out/check_$pid.txt && [ "$tier" = quick ]; then
-    # the flagged harnesses may belong to the thorough tier only (larger bounds, slow ones)
-    (cd $V && VERIF_ONLY="$hits" python3 check.py $pid --tier thorough > $out/check_${pid}_thorough.txt 2>$out/check_${pid}_thorough.err; echo "exit=$? (tier thorough, restricted to the harnesses the native sweep flagged: $hits)" >> $out/check_${pid}_thorough.txt)
-    if grep -q "^VIOLATION" $out/check_${pid}_thorough.txt; then cp $out/check_${pid}_thorough.txt $out/check_$pid.txt; fi
-  fi
-fi
-if [ -z "$hits" ] || { ! grep -q "^VIOLATION" $out/check_$pid.txt && grep -q "no obligation was generated" $out/check_$pid.txt; }; then
-  (cd $V && python3 check.py $pid --tier $tier > $out/check_$pid.txt 2>$out/check_$pid.err; echo "exit=$? (tier $tier, full check; native sweep flagged nothing the restricted runs could decide)" >> $out/check_$pid.txt)
-fi
-eif [ -n "$hits" ]; then
-  (cd $V && VERIF_ONLY="$hits" python3 check.py $pid --tier $tier > $out/check_$pid.txt 2>$out/check_$pid.err; echo "exit=$? (tier $tier, restricted to the harnesses the native sweep flagged: $hits)" >> $out/check_$pid.txt)
-  if ! grep -q "^VIOLATION" $out/check_$pid.txt && [ "$tier" = quick ]; then
-    # the flagged harnesses may belong to the thorough tier only (larger bounds, slow ones)
-    (cd $V && VERIF_ONLY="$hits" python3 check.py $pid --tier thorough > $out/check_${pid}_thorough.txt 2>$out/check_${pid}_thorough.err; echo "exit=$? (tier thorough, restricted to the harnesses the native sweep flagged: $hits)" >> $out/check_${pid}_thorough.txt)
-    if grep -q "^VIOLATION" $out/check_${pid}_thorough.txt; then cp $out/check_${pid}_thorough.txt $out/check_$pid.txt; fi
-  fi
-fi
-if [ -z "$hits" ] || { ! grep -q "^VIOLATION" $out/check_$pid.txt && grep -q "no obligation was generated" $out/check_$pid.txt; }; then
-  (cd $V && python3 check.py $pid --tier $tier > $out/check_$pid.txt 2>$out/check_$pid.err; echo "exit=$? (tier $tier, full check; native sweep flagged nothing the restricted runs could decide)" >> $out/check_$pid.txt)
-fi
-dif [ -n "$hits" ]; then
-  (cd $V && VERIF_ONLY="$hits" python3 check.py $pid --tier $tier > $out/check_$pid.txt 2>$out/check_$pid.err; echo "exit=$? (tier $tier, restricted to the harnesses the native sweep flagged: $hits)" >> $out/check_$pid.txt)
-  if ! grep -q "^VIOLATION" $out/check_$pid.txt && [ "$tier" = quick ]; then
-    # the flagged harnesses may belong to the thorough tier only (larger bounds, slow ones)
-    (cd $V && VERIF_ONLY="$hits" python3 check.py $pid --tier thorough > $out/check_${pid}_thorough.txt 2>$out/check_${pid}_thorough.err; echo "exit=$? (tier thorough, restricted to the harnesses the native sweep flagged: $hits)" >> $out/check_${pid}_thorough.txt)
-    if grep -q "^VIOLATION" $out/check_${pid}_thorough.txt; then cp $out/check_${pid}_thorough.txt $out/check_$pid.txt; fi
-  fi
-fi
-if [ -z "$hits" ] || { ! grep -q "^VIOLATION" $out/check_$pid.txt && grep -q "no obligation was generated" $out/check_$pid.txt; }; then
-  (cd $V && python3 check.py $pid --tier $tier > $out/check_$pid.txt 2>$out/check_$pid.err; echo "exit=$? (tier $tier, full check; native sweep flagged nothing the restricted runs could decide)" >> $out/check_$pid.txt)
-fi
- if [ -n "$hits" ]; then
-  (cd $V && VERIF_ONLY="$hits" python3 check.py $pid --tier $tier > $out/check_$pid.txt 2>$out/check_$pid.err; echo "exit=$? (tier $tier, restricted to the harnesses the native sweep flagged: $hits)" >> $out/check_$pid.txt)
-  if ! grep -q "^VIOLATION" $out/check_$pid.txt && [ "$tier" = quick ]; then
-    # the flagged harnesses may belong to the thorough tier only (larger bounds, slow ones)
-    (cd $V && VERIF_ONLY="$hits" python3 check.py $pid --tier thorough > $out/check_${pid}_thorough.txt 2>$out/check_${pid}_thorough.err; echo "exit=$? (tier thorough, restricted to the harnesses the native sweep flagged: $hits)" >> $out/check_${pid}_thorough.txt)
-    if grep -q "^VIOLATION" $out/check_${pid}_thorough.txt; then cp $out/check_${pid}_thorough.txt $out/check_$pid.txt; fi
-  fi
-fi
-if [ -z "$hits" ] || { ! grep -q "^VIOLATION" $out/check_$pid.txt && grep -q "no obligation was generated" $out/check_$pid.txt; }; then
-  (cd $V && python3 check.py $pid --tier $tier > $out/check_$pid.txt 2>$out/check_$pid.err; echo "exit=$? (tier $tier, full check; native sweep flagged nothing the restricted runs could decide)" >> $out/check_$pid.txt)
-fi
-tif [ -n "$hits" ]; then
-  (cd $V && VERIF_ONLY="$hits" python3 check.py $pid --tier $tier > $out/check_$pid.txt 2>$out/check_$pid.err; echo "exit=$? (tier $tier, restricted to the harnesses the native sweep flagged: $hits)" >> $out/check_$pid.txt)
-  if ! grep -q "^VIOLATION" $out/check_$pid.txt && [ "$tier" = quick ]; then
-    # the flagged harnesses may belong to the thorough tier only (larger bounds, slow ones)
-    (cd $V && VERIF_ONLY="$hits" python3 check.py $pid --tier thorough > $out/check_${pid}_thorough.txt 2>$out/check_${pid}_thorough.err; echo "exit=$? (tier thorough, restricted to the harnesses the native sweep flagged: $hits)" >> $out/check_${pid}_thorough.txt)
-    if grep -q "^VIOLATION" $out/check_${pid}_thorough.txt; then cp $out/check_${pid}_thorough.txt $out/check_$pid.txt; fi
-  fi
-fi
-if [ -z "$hits" ] || { ! grep -q "^VIOLATION" $out/check_$pid.txt && grep -q "no obligation was generated" $out/check_$pid.txt; }; then
-  (cd $V && python3 check.py $pid --tier $tier > $out/check_$pid.txt 2>$out/check_$pid.err; echo "exit=$? (tier $tier, full check; native sweep flagged nothing the restricted runs could decide)" >> $out/check_$pid.txt)
-fi
-oif [ -n "$hits" ]; then
-  (cd $V && VERIF_ONLY="$hits" python3 check.py $pid --tier $tier > $out/check_$pid.txt 2>$out/check_$pid.err; echo "exit=$? (tier $tier, restricted to the harnesses the native sweep flagged: $hits)" >> $out/check_$pid.txt)
-  if ! grep -q "^VIOLATION" $out/check_$pid.txt && [ "$tier" = quick ]; then
-    # the flagged harnesses may belong to the thorough tier only (larger bounds, slow ones)
-    (cd $V && VERIF_ONLY="$hits" python3 check.py $pid --tier thorough > $out/check_${pid}_thorough.txt 2>$out/check_${pid}_thorough.err; echo "exit=$? (tier thorough, restricted to the harnesses the native sweep flagged: $hits)" >> $out/check_${pid}_thorough.txt)
-    if grep -q "^VIOLATION" $out/check_${pid}_thorough.txt; then cp $out/check_${pid}_thorough.txt $out/check_$pid.txt; fi
-  fi
-fi
-if [ -z "$hits" ] || { ! grep -q "^VIOLATION" $out/check_$pid.txt && grep -q "no obligation was generated" $out/check_$pid.txt; }; then
-  (cd $V && python3 check.py $pid --tier $tier > $out/check_$pid.txt 2>$out/check_$pid.err; echo "exit=$? (tier $tier, full check; native sweep flagged nothing the restricted runs could decide)" >> $out/check_$pid.txt)
-fi
- if [ -n "$hits" ]; then
-  (cd $V && VERIF_ONLY="$hits" python3 check.py $pid --tier $tier > $out/check_$pid.txt 2>$out/check_$pid.err; echo "exit=$? (tier $tier, restricted to the harnesses the native sweep flagged: $hits)" >> $out/check_$pid.txt)
-  if ! grep -q "^VIOLATION" $out/check_$pid.txt && [ "$tier" = quick ]; then
-    # the flagged harnesses may belong to the thorough tier only (larger bounds, slow ones)
-    (cd $V && VERIF_ONLY="$hits" python3 check.py $pid --tier thorough > $out/check_${pid}_thorough.txt 2>$out/check_${pid}_thorough.err; echo "exit=$? (tier thorough, restricted to the harnesses the native sweep flagged: $hits)" >> $out/check_${pid}_thorough.txt)
-    if grep -q "^VIOLATION" $out/check_${pid}_thorough.txt; then cp $out/check_${pid}_thorough.txt $out/check_$pid.txt; fi
-  fi
-fi
-if [ -z "$hits" ] || { ! grep -q "^VIOLATION" $out/check_$pid.txt && grep -q "no obligation was generated" $out/check_$pid.txt; }; then
-  (cd $V && python3 check.py $pid --tier $tier > $out/check_$pid.txt 2>$out/check_$pid.err; echo "exit=$? (tier $tier, full check; native sweep flagged nothing the restricted runs could decide)" >> $out/check_$pid.txt)
-fi
-tif [ -n "$hits" ]; then
-  (cd $V && VERIF_ONLY="$hits" python3 check.py $pid --tier $tier > $out/check_$pid.txt 2>$out/check_$pid.err; echo "exit=$? (tier $tier, restricted to the harnesses the native sweep flagged: $hits)" >> $out/check_$pid.txt)
-  if ! grep -q "^VIOLATION" $out/check_$pid.txt && [ "$tier" = quick ]; then
-    # the flagged harnesses may belong to the thorough tier only (larger bounds, slow ones)
-    (cd $V && VERIF_ONLY="$hits" python3 check.py $pid --tier thorough > $out/check_${pid}_thorough.txt 2>$out/check_${pid}_thorough.err; echo "exit=$? (tier thorough, restricted to the harnesses the native sweep flagged: $hits)" >> $out/check_${pid}_thorough.txt)
-    if grep -q "^VIOLATION" $out/check_${pid}_thorough.txt; then cp $out/check_${pid}_thorough.txt $out/check_$pid.txt; fi
-  fi
-fi
-if [ -z "$hits" ] || { ! grep -q "^VIOLATION" $out/check_$pid.txt && grep -q "no obligation was generated" $out/check_$pid.txt; }; then
-  (cd $V && python3 check.py $pid --tier $tier > $out/check_$pid.txt 2>$out/check_$pid.err; echo "exit=$? (tier $tier, full check; native sweep flagged nothing the restricted runs could decide)" >> $out/check_$pid.txt)
-fi
-hif [ -n "$hits" ]; then
-  (cd $V && VERIF_ONLY="$hits" python3 check.py $pid --tier $tier > $out/check_$pid.txt 2>$out/check_$pid.err; echo "exit=$? (tier $tier, restricted to the harnesses the native sweep flagged: $hits)" >> $out/check_$pid.txt)
-  if ! grep -q "^VIOLATION" $out/check_$pid.txt && [ "$tier" = quick ]; then
-    # the flagged harnesses may belong to the thorough tier only (larger bounds, slow ones)
-    (cd $V && VERIF_ONLY="$hits" python3 check.py $pid --tier thorough > $out/check_${pid}_thorough.txt 2>$out/check_${pid}_thorough.err; echo "exit=$? (tier thorough, restricted to the harnesses the native sweep flagged: $hits)" >> $out/check_${pid}_thorough.txt)
-    if grep -q "^VIOLATION" $out/check_${pid}_thorough.txt; then cp $out/check_${pid}_thorough.txt $out/check_$pid.txt; fi
-  fi
-fi
-if [ -z "$hits" ] || { ! grep -q "^VIOLATION" $out/check_$pid.txt && grep -q "no obligation was generated" $out/check_$pid.txt; }; then
-  (cd $V && python3 check.py $pid --tier $tier > $out/check_$pid.txt 2>$out/check_$pid.err; echo "exit=$? (tier $tier, full check; native sweep flagged nothing the restricted runs could decide)" >> $out/check_$pid.txt)
-fi
-eif [ -n "$hits" ]; then
-  (cd $V && VERIF_ONLY="$hits" python3 check.py $pid --tier $tier > $out/check_$pid.txt 2>$out/check_$pid.err; echo "exit=$? (tier $tier, restricted to the harnesses the native sweep flagged: $hits)" >> $out/check_$pid.txt)
-  if ! grep -q "^VIOLATION" $out/check_$pid.txt && [ "$tier" = quick ]; then
-    # the flagged harnesses may belong to the thorough tier only (larger bounds, slow ones)
-    (cd $V && VERIF_ONLY="$hits" python3 check.py $pid --tier thorough > $out/check_${pid}_thorough.txt 2>$out/check_${pid}_thorough.err; echo "exit=$? (tier thorough, restricted to the harnesses the native sweep flagged: $hits)" >> $out/check_${pid}_thorough.txt)
-    if grep -q "^VIOLATION" $out/check_${pid}_thorough.txt; then cp $out/check_${pid}_thorough.txt $out/check_$pid.txt; fi
-  fi
-fi
-if [ -z "$hits" ] || { ! grep -q "^VIOLATION" $out/check_$pid.txt && grep -q "no obligation was generated" $out/check_$pid.txt; }; then
-  (cd $V && python3 check.py $pid --tier $tier > $out/check_$pid.txt 2>$out/check_$pid.err; echo "exit=$? (tier $tier, full check; native sweep flagged nothing the restricted runs could decide)" >> $out/check_$pid.txt)
-fi
- if [ -n "$hits" ]; then
-  (cd $V && VERIF_ONLY="$hits" python3 check.py $pid --tier $tier > $out/check_$pid.txt 2>$out/check_$pid.err; echo "exit=$? (tier $tier, restricted to the harnesses the native sweep flagged: $hits)" >> $out/check_$pid.txt)
-  if ! grep -q "^VIOLATION" $out/check_$pid.txt && [ "$tier" = quick ]; then
-    # the flagged harnesses may belong to the thorough tier only (larger bounds, slow ones)
-    (cd $V && VERIF_ONLY="$hits" python3 check.py $pid --tier thorough > $out/check_${pid}_thorough.txt 2>$out/check_${pid}_thorough.err; echo "exit=$? (tier thorough, restricted to the harnesses the native sweep flagged: $hits)" >> $out/check_${pid}_thorough.txt)
-    if grep -q "^VIOLATION" $out/check_${pid}_thorough.txt; then cp $out/check_${pid}_thorough.txt $out/check_$pid.txt; fi
-  fi
-fi
-if [ -z "$hits" ] || { ! grep -q "^VIOLATION" $out/check_$pid.txt && grep -q "no obligation was generated" $out/check_$pid.txt; }; then
-  (cd $V && python3 check.py $pid --tier $tier > $out/check_$pid.txt 2>$out/check_$pid.err; echo "exit=$? (tier $tier, full check; native sweep flagged nothing the restricted runs could decide)" >> $out/check_$pid.txt)
-fi
-aif [ -n "$hits" ]; then
-  (cd $V && VERIF_ONLY="$hits" python3 check.py $pid --tier $tier > $out/check_$pid.txt 2>$out/check_$pid.err; echo "exit=$? (tier $tier, restricted to the harnesses the native sweep flagged: $hits)" >> $out/check_$pid.txt)
-  if ! grep -q "^VIOLATION" $out/check_$pid.txt && [ "$tier" = quick ]; then
-    # the flagged harnesses may belong to the thorough tier only (larger bounds, slow ones)
-    (cd $V && VERIF_ONLY="$hits" python3 check.py $pid --tier thorough > $out/check_${pid}_thorough.txt 2>$out/check_${pid}_thorough.err; echo "exit=$? (tier thorough, restricted to the harnesses the native sweep flagged: $hits)" >> $out/check_${pid}_thorough.txt)
-    if grep -q "^VIOLATION" $out/check_${pid}_thorough.txt; then cp $out/check_${pid}_thorough.txt $out/check_$pid.txt; fi
-  fi
-fi
-if [ -z "$hits" ] || { ! grep -q "^VIOLATION" $out/check_$pid.txt && grep -q "no obligation was generated" $out/check_$pid.txt; }; then
-  (cd $V && python3 check.py $pid --tier $tier > $out/check_$pid.txt 2>$out/check_$pid.err; echo "exit=$? (tier $tier, full check; native sweep flagged nothing the restricted runs could decide)" >> $out/check_$pid.txt)
-fi
-fif [ -n "$hits" ]; then
-  (cd $V && VERIF_ONLY="$hits" python3 check.py $pid --tier $tier > $out/check_$pid.txt 2>$out/check_$pid.err; echo "exit=$? (tier $tier, restricted to the harnesses the native sweep flagged: $hits)" >> $out/check_$pid.txt)
-  if ! grep -q "^VIOLATION" $out/check_$pid.txt && [ "$tier" = quick ]; then
-    # the flagged harnesses may belong to the thorough tier only (larger bounds, slow ones)
-    (cd $V && VERIF_ONLY="$hits" python3 check.py $pid --tier thorough > $out/check_${pid}_thorough.txt 2>$out/check_${pid}_thorough.err; echo "exit=$? (tier thorough, restricted to the harnesses the native sweep flagged: $hits)" >> $out/check_${pid}_thorough.txt)
-    if grep -q "^VIOLATION" $out/check_${pid}_thorough.txt; then cp $out/check_${pid}_thorough.txt $out/check_$pid.txt; fi
-  fi
-fi
-if [ -z "$hits" ] || { ! grep -q "^VIOLATION" $out/check_$pid.txt && grep -q "no obligation was generated" $out/check_$pid.txt; }; then
-  (cd $V && python3 check.py $pid --tier $tier > $out/check_$pid.txt 2>$out/check_$pid.err; echo "exit=$? (tier $tier, full check; native sweep flagged nothing the restricted runs could decide)" >> $out/check_$pid.txt)
-fi
-fif [ -n "$hits" ]; then
-  (cd $V && VERIF_ONLY="$hits" python3 check.py $pid --tier $tier > $out/check_$pid.txt 2>$out/check_$pid.err; echo "exit=$? (tier $tier, restricted to the harnesses the native sweep flagged: $hits)" >> $out/check_$pid.txt)
-  if ! grep -q "^VIOLATION" $out/check_$pid.txt && [ "$tier" = quick ]; then
-    # the flagged harnesses may belong to the thorough tier only (larger bounds, slow ones)
-    (cd $V && VERIF_ONLY="$hits" python3 check.py $pid --tier thorough > $out/check_${pid}_thorough.txt 2>$out/check_${pid}_thorough.err; echo "exit=$? (tier thorough, restricted to the harnesses the native sweep flagged: $hits)" >> $out/check_${pid}_thorough.txt)
-    if grep -q "^VIOLATION" $out/check_${pid}_thorough.txt; then cp $out/check_${pid}_thorough.txt $out/check_$pid.txt; fi
-  fi
-fi
-if [ -z "$hits" ] || { ! grep -q "^VIOLATION" $out/check_$pid.txt && grep -q "no obligation was generated" $out/check_$pid.txt; }; then
-  (cd $V && python3 check.py $pid --tier $tier > $out/check_$pid.txt 2>$out/check_$pid.err; echo "exit=$? (tier $tier, full check; native sweep flagged nothing the restricted runs could decide)" >> $out/check_$pid.txt)
-fi
-eif [ -n "$hits" ]; then
-  (cd $V && VERIF_ONLY="$hits" python3 check.py $pid --tier $tier > $out/check_$pid.txt 2>$out/check_$pid.err; echo "exit=$? (tier $tier, restricted to the harnesses the native sweep flagged: $hits)" >> $out/check_$pid.txt)
-  if ! grep -q "^VIOLATION" $out/check_$pid.txt && [ "$tier" = quick ]; then
-    # the flagged harnesses may belong to the thorough tier only (larger bounds, slow ones)
-    (cd $V && VERIF_ONLY="$hits" python3 check.py $pid --tier thorough > $out/check_${pid}_thorough.txt 2>$out/check_${pid}_thorough.err; echo "exit=$? (tier thorough, restricted to the harnesses the native sweep flagged: $hits)" >> $out/check_${pid}_thorough.txt)
-    if grep -q "^VIOLATION" $out/check_${pid}_thorough.txt; then cp $out/check_${pid}_thorough.txt $out/check_$pid.txt; fi
-  fi
-fi
-if [ -z "$hits" ] || { ! grep -q "^VIOLATION" $out/check_$pid.txt && grep -q "no obligation was generated" $out/check_$pid.txt; }; then
-  (cd $V && python3 check.py $pid --tier $tier > $out/check_$pid.txt 2>$out/check_$pid.err; echo "exit=$? (tier $tier, full check; native sweep flagged nothing the restricted runs could decide)" >> $out/check_$pid.txt)
-fi
-cif [ -n "$hits" ]; then
-  (cd $V && VERIF_ONLY="$hits" python3 check.py $pid --tier $tier > $out/check_$pid.txt 2>$out/check_$pid.err; echo "exit=$? (tier $tier, restricted to the harnesses the native sweep flagged: $hits)" >> $out/check_$pid.txt)
-  if ! grep -q "^VIOLATION" $out/check_$pid.txt && [ "$tier" = quick ]; then
-    # the flagged harnesses may belong to the thorough tier only (larger bounds, slow ones)
-    (cd $V && VERIF_ONLY="$hits" python3 check.py $pid --tier thorough > $out/check_${pid}_thorough.txt 2>$out/check_${pid}_thorough.err; echo "exit=$? (tier thorough, restricted to the harnesses the native sweep flagged: $hits)" >> $out/check_${pid}_thorough.txt)
-    if grep -q "^VIOLATION" $out/check_${pid}_thorough.txt; then cp $out/check_${pid}_thorough.txt $out/check_$pid.txt; fi
-  fi
-fi
-if [ -z "$hits" ] || { ! grep -q "^VIOLATION" $out/check_$pid.txt && grep -q "no obligation was generated" $out/check_$pid.txt; }; then
-  (cd $V && python3 check.py $pid --tier $tier > $out/check_$pid.txt 2>$out/check_$pid.err; echo "exit=$? (tier $tier, full check; native sweep flagged nothing the restricted runs could decide)" >> $out/check_$pid.txt)
-fi
-tif [ -n "$hits" ]; then
-  (cd $V && VERIF_ONLY="$hits" python3 check.py $pid --tier $tier > $out/check_$pid.txt 2>$out/check_$pid.err; echo "exit=$? (tier $tier, restricted to the harnesses the native sweep flagged: $hits)" >> $out/check_$pid.txt)
-  if ! grep -q "^VIOLATION" $out/check_$pid.txt && [ "$tier" = quick ]; then
-    # the flagged harnesses may belong to the thorough tier only (larger bounds, slow ones)
-    (cd $V && VERIF_ONLY="$hits" python3 check.py $pid --tier thorough > $out/check_${pid}_thorough.txt 2>$out/check_${pid}_thorough.err; echo "exit=$? (tier thorough, restricted to the harnesses the native sweep flagged: $hits)" >> $out/check_${pid}_thorough.txt)
-    if grep -q "^VIOLATION" $out/check_${pid}_thorough.txt; then cp $out/check_${pid}_thorough.txt $out/check_$pid.txt; fi
-  fi
-fi
-if [ -z "$hits" ] || { ! grep -q "^VIOLATION" $out/check_$pid.txt && grep -q "no obligation was generated" $out/check_$pid.txt; }; then
-  (cd $V && python3 check.py $pid --tier $tier > $out/check_$pid.txt 2>$out/check_$pid.err; echo "exit=$? (tier $tier, full check; native sweep flagged nothing the restricted runs could decide)" >> $out/check_$pid.txt)
-fi
-eif [ -n "$hits" ]; then
-  (cd $V && VERIF_ONLY="$hits" python3 check.py $pid --tier $tier > $out/check_$pid.txt 2>$out/check_$pid.err; echo "exit=$? (tier $tier, restricted to the harnesses the native sweep flagged: $hits)" >> $out/check_$pid.txt)
-  if ! grep -q "^VIOLATION" $out/check_$pid.txt && [ "$tier" = quick ]; then
-    # the flagged harnesses may belong to the thorough tier only (larger bounds, slow ones)
-    (cd $V && VERIF_ONLY="$hits" python3 check.py $pid --tier thorough > $out/check_${pid}_thorough.txt 2>$out/check_${pid}_thorough.err; echo "exit=$? (tier thorough, restricted to the harnesses the native sweep flagged: $hits)" >> $out/check_${pid}_thorough.txt)
-    if grep -q "^VIOLATION" $out/check_${pid}_thorough.txt; then cp $out/check_${pid}_thorough.txt $out/check_$pid.txt; fi
-  fi
-fi
-if [ -z "$hits" ] || { ! grep -q "^VIOLATION" $out/check_$pid.txt && grep -q "no obligation was generated" $out/check_$pid.txt; }; then
-  (cd $V && python3 check.py $pid --tier $tier > $out/check_$pid.txt 2>$out/check_$pid.err; echo "exit=$? (tier $tier, full check; native sweep flagged nothing the restricted runs could decide)" >> $out/check_$pid.txt)
-fi
-dif [ -n "$hits" ]; then
-  (cd $V && VERIF_ONLY="$hits" python3 check.py $pid --tier $tier > $out/check_$pid.txt 2>$out/check_$pid.err; echo "exit=$? (tier $tier, restricted to the harnesses the native sweep flagged: $hits)" >> $out/check_$pid.txt)
-  if ! grep -q "^VIOLATION" $out/check_$pid.txt && [ "$tier" = quick ]; then
-    # the flagged harnesses may belong to the thorough tier only (larger bounds, slow ones)
-    (cd $V && VERIF_ONLY="$hits" python3 check.py $pid --tier thorough > $out/check_${pid}_thorough.txt 2>$out/check_${pid}_thorough.err; echo "exit=$? (tier thorough, restricted to the harnesses the native sweep flagged: $hits)" >> $out/check_${pid}_thorough.txt)
-    if grep -q "^VIOLATION" $out/check_${pid}_thorough.txt; then cp $out/check_${pid}_thorough.txt $out/check_$pid.txt; fi
-  fi
-fi
-if [ -z "$hits" ] || { ! grep -q "^VIOLATION" $out/check_$pid.txt && grep -q "no obligation was generated" $out/check_$pid.txt; }; then
-  (cd $V && python3 check.py $pid --tier $tier > $out/check_$pid.txt 2>$out/check_$pid.err; echo "exit=$? (tier $tier, full check; native sweep flagged nothing the restricted runs could decide)" >> $out/check_$pid.txt)
-fi
- if [ -n "$hits" ]; then
-  (cd $V && VERIF_ONLY="$hits" python3 check.py $pid --tier $tier > $out/check_$pid.txt 2>$out/check_$pid.err; echo "exit=$? (tier $tier, restricted to the harnesses the native sweep flagged: $hits)" >> $out/check_$pid.txt)
-  if ! grep -q "^VIOLATION" $out/check_$pid.txt && [ "$tier" = quick ]; then
-    # the flagged harnesses may belong to the thorough tier only (larger bounds, slow ones)
-    (cd $V && VERIF_ONLY="$hits" python3 check.py $pid --tier thorough > $out/check_${pid}_thorough.txt 2>$out/check_${pid}_thorough.err; echo "exit=$? (tier thorough, restricted to the harnesses the native sweep flagged: $hits)" >> $out/check_${pid}_thorough.txt)
-    if grep -q "^VIOLATION" $out/check_${pid}_thorough.txt; then cp $out/check_${pid}_thorough.txt $out/check_$pid.txt; fi
-  fi
-fi
-if [ -z "$hits" ] || { ! grep -q "^VIOLATION" $out/check_$pid.txt && grep -q "no obligation was generated" $out/check_$pid.txt; }; then
-  (cd $V && python3 check.py $pid --tier $tier > $out/check_$pid.txt 2>$out/check_$pid.err; echo "exit=$? (tier $tier, full check; native sweep flagged nothing the restricted runs could decide)" >> $out/check_$pid.txt)
-fi
-hif [ -n "$hits" ]; then
-  (cd $V && VERIF_ONLY="$hits" python3 check.py $pid --tier $tier > $out/check_$pid.txt 2>$out/check_$pid.err; echo "exit=$? (tier $tier, restricted to the harnesses the native sweep flagged: $hits)" >> $out/check_$pid.txt)
-  if ! grep -q "^VIOLATION" $out/check_$pid.txt && [ "$tier" = quick ]; then
-    # the flagged harnesses may belong to the thorough tier only (larger bounds, slow ones)
-    (cd $V && VERIF_ONLY="$hits" python3 check.py $pid --tier thorough > $out/check_${pid}_thorough.txt 2>$out/check_${pid}_thorough.err; echo "exit=$? (tier thorough, restricted to the harnesses the native sweep flagged: $hits)" >> $out/check_${pid}_thorough.txt)
-    if grep -q "^VIOLATION" $out/check_${pid}_thorough.txt; then cp $out/check_${pid}_thorough.txt $out/check_$pid.txt; fi
-  fi
-fi
-if [ -z "$hits" ] || { ! grep -q "^VIOLATION" $out/check_$pid.txt && grep -q "no obligation was generated" $out/check_$pid.txt; }; then
-  (cd $V && python3 check.py $pid --tier $tier > $out/check_$pid.txt 2>$out/check_$pid.err; echo "exit=$? (tier $tier, full check; native sweep flagged nothing the restricted runs could decide)" >> $out/check_$pid.txt)
-fi
-aif [ -n "$hits" ]; then
-  (cd $V && VERIF_ONLY="$hits" python3 check.py $pid --tier $tier > $out/check_$pid.txt 2>$out/check_$pid.err; echo "exit=$? (tier $tier, restricted to the harnesses the native sweep flagged: $hits)" >> $out/check_$pid.txt)
-  if ! grep -q "^VIOLATION" $out/check_$pid.txt && [ "$tier" = quick ]; then
-    # the flagged harnesses may belong to the thorough tier only (larger bounds, slow ones)
-    (cd $V && VERIF_ONLY="$hits" python3 check.py $pid --tier thorough > $out/check_${pid}_thorough.txt 2>$out/check_${pid}_thorough.err; echo "exit=$? (tier thorough, restricted to the harnesses the native sweep flagged: $hits)" >> $out/check_${pid}_thorough.txt)
-    if grep -q "^VIOLATION" $out/check_${pid}_thorough.txt; then cp $out/check_${pid}_thorough.txt $out/check_$pid.txt; fi
-  fi
-fi
-if [ -z "$hits" ] || { ! grep -q "^VIOLATION" $out/check_$pid.txt && grep -q "no obligation was generated" $out/check_$pid.txt; }; then
-  (cd $V && python3 check.py $pid --tier $tier > $out/check_$pid.txt 2>$out/check_$pid.err; echo "exit=$? (tier $tier, full check; native sweep flagged nothing the restricted runs could decide)" >> $out/check_$pid.txt)
-fi
-rif [ -n "$hits" ]; then
-  (cd $V && VERIF_ONLY="$hits" python3 check.py $pid --tier $tier > $out/check_$pid.txt 2>$out/check_$pid.err; echo "exit=$? (tier $tier, restricted to the harnesses the native sweep flagged: $hits)" >> $out/check_$pid.txt)
-  if ! grep -q "^VIOLATION" $out/check_$pid.txt && [ "$tier" = quick ]; then
-    # the flagged harnesses may belong to the thorough tier only (larger bounds, slow ones)
-    (cd $V && VERIF_ONLY="$hits" python3 check.py $pid --tier thorough > $out/check_${pid}_thorough.txt 2>$out/check_${pid}_thorough.err; echo "exit=$? (tier thorough, restricted to the harnesses the native sweep flagged: $hits)" >> $out/check_${pid}_thorough.txt)
-    if grep -q "^VIOLATION" $out/check_${pid}_thorough.txt; then cp $out/check_${pid}_thorough.txt $out/check_$pid.txt; fi
-  fi
-fi
-if [ -z "$hits" ] || { ! grep -q "^VIOLATION" $out/check_$pid.txt && grep -q "no obligation was generated" $out/check_$pid.txt; }; then
-  (cd $V && python3 check.py $pid --tier $tier > $out/check_$pid.txt 2>$out/check_$pid.err; echo "exit=$? (tier $tier, full check; native sweep flagged nothing the restricted runs could decide)" >> $out/check_$pid.txt)
-fi
-nif [ -n "$hits" ]; then
-  (cd $V && VERIF_ONLY="$hits" python3 check.py $pid --tier $tier > $out/check_$pid.txt 2>$out/check_$pid.err; echo "exit=$? (tier $tier, restricted to the harnesses the native sweep flagged: $hits)" >> $out/check_$pid.txt)
-  if ! grep -q "^VIOLATION" $out/check_$pid.txt && [ "$tier" = quick ]; then
-    # the flagged harnesses may belong to the thorough tier only (larger bounds, slow ones)
-    (cd $V && VERIF_ONLY="$hits" python3 check.py $pid --tier thorough > $out/check_${pid}_thorough.txt 2>$out/check_${pid}_thorough.err; echo "exit=$? (tier thorough, restricted to the harnesses the native sweep flagged: $hits)" >> $out/check_${pid}_thorough.txt)
-    if grep -q "^VIOLATION" $out/check_${pid}_thorough.txt; then cp $out/check_${pid}_thorough.txt $out/check_$pid.txt; fi
-  fi
-fi
-if [ -z "$hits" ] || { ! grep -q "^VIOLATION" $out/check_$pid.txt && grep -q "no obligation was generated" $out/check_$pid.txt; }; then
-  (cd $V && python3 check.py $pid --tier $tier > $out/check_$pid.txt 2>$out/check_$pid.err; echo "exit=$? (tier $tier, full check; native sweep flagged nothing the restricted runs could decide)" >> $out/check_$pid.txt)
-fi
-eif [ -n "$hits" ]; then
-  (cd $V && VERIF_ONLY="$hits" python3 check.py $pid --tier $tier > $out/check_$pid.txt 2>$out/check_$pid.err; echo "exit=$? (tier $tier, restricted to the harnesses the native sweep flagged: $hits)" >> $out/check_$pid.txt)
-  if ! grep -q "^VIOLATION" $out/check_$pid.txt && [ "$tier" = quick ]; then
-    # the flagged harnesses may belong to the thorough tier only (larger bounds, slow ones)
-    (cd $V && VERIF_ONLY="$hits" python3 check.py $pid --tier thorough > $out/check_${pid}_thorough.txt 2>$out/check_${pid}_thorough.err; echo "exit=$? (tier thorough, restricted to the harnesses the native sweep flagged: $hits)" >> $out/check_${pid}_thorough.txt)
-    if grep -q "^VIOLATION" $out/check_${pid}_thorough.txt; then cp $out/check_${pid}_thorough.txt $out/check_$pid.txt; fi
-  fi
-fi
-if [ -z "$hits" ] || { ! grep -q "^VIOLATION" $out/check_$pid.txt && grep -q "no obligation was generated" $out/check_$pid.txt; }; then
-  (cd $V && python3 check.py $pid --tier $tier > $out/check_$pid.txt 2>$out/check_$pid.err; echo "exit=$? (tier $tier, full check; native sweep flagged nothing the restricted runs could decide)" >> $out/check_$pid.txt)
-fi
-sif [ -n "$hits" ]; then
-  (cd $V && VERIF_ONLY="$hits" python3 check.py $pid --tier $tier > $out/check_$pid.txt 2>$out/check_$pid.err; echo "exit=$? (tier $tier, restricted to the harnesses the native sweep flagged: $hits)" >> $out/check_$pid.txt)
-  if ! grep -q "^VIOLATION" $out/check_$pid.txt && [ "$tier" = quick ]; then
-    # the flagged harnesses may belong to the thorough tier only (larger bounds, slow ones)
-    (cd $V && VERIF_ONLY="$hits" python3 check.py $pid --tier thorough > $out/check_${pid}_thorough.txt 2>$out/check_${pid}_thorough.err; echo "exit=$? (tier thorough, restricted to the harnesses the native sweep flagged: $hits)" >> $out/check_${pid}_thorough.txt)
-    if grep -q "^VIOLATION" $out/check_${pid}_thorough.txt; then cp $out/check_${pid}_thorough.txt $out/check_$pid.txt; fi
-  fi
-fi
-if [ -z "$hits" ] || { ! grep -q "^VIOLATION" $out/check_$pid.txt && grep -q "no obligation was generated" $out/check_$pid.txt; }; then
-  (cd $V && python3 check.py $pid --tier $tier > $out/check_$pid.txt 2>$out/check_$pid.err; echo "exit=$? (tier $tier, full check; native sweep flagged nothing the restricted runs could decide)" >> $out/check_$pid.txt)
-fi
-sif [ -n "$hits" ]; then
-  (cd $V && VERIF_ONLY="$hits" python3 check.py $pid --tier $tier > $out/check_$pid.txt 2>$out/check_$pid.err; echo "exit=$? (tier $tier, restricted to the harnesses the native sweep flagged: $hits)" >> $out/check_$pid.txt)
-  if ! grep -q "^VIOLATION" $out/check_$pid.txt && [ "$tier" = quick ]; then
-    # the flagged harnesses may belong to the thorough tier only (larger bounds, slow ones)
-    (cd $V && VERIF_ONLY="$hits" python3 check.py $pid --tier thorough > $out/check_${pid}_thorough.txt 2>$out/check_${pid}_thorough.err; echo "exit=$? (tier thorough, restricted to the harnesses the native sweep flagged: $hits)" >> $out/check_${pid}_thorough.txt)
-    if grep -q "^VIOLATION" $out/check_${pid}_thorough.txt; then cp $out/check_${pid}_thorough.txt $out/check_$pid.txt; fi
-  fi
-fi
-if [ -z "$hits" ] || { ! grep -q "^VIOLATION" $out/check_$pid.txt && grep -q "no obligation was generated" $out/check_$pid.txt; }; then
-  (cd $V && python3 check.py $pid --tier $tier > $out/check_$pid.txt 2>$out/check_$pid.err; echo "exit=$? (tier $tier, full check; native sweep flagged nothing the restricted runs could decide)" >> $out/check_$pid.txt)
-fi
-eif [ -n "$hits" ]; then
-  (cd $V && VERIF_ONLY="$hits" python3 check.py $pid --tier $tier > $out/check_$pid.txt 2>$out/check_$pid.err; echo "exit=$? (tier $tier, restricted to the harnesses the native sweep flagged: $hits)" >> $out/check_$pid.txt)
-  if ! grep -q "^VIOLATION" $out/check_$pid.txt && [ "$tier" = quick ]; then
-    # the flagged harnesses may belong to the thorough tier only (larger bounds, slow ones)
-    (cd $V && VERIF_ONLY="$hits" python3 check.py $pid --tier thorough > $out/check_${pid}_thorough.txt 2>$out/check_${pid}_thorough.err; echo "exit=$? (tier thorough, restricted to the harnesses the native sweep flagged: $hits)" >> $out/check_${pid}_thorough.txt)
-    if grep -q "^VIOLATION" $out/check_${pid}_thorough.txt; then cp $out/check_${pid}_thorough.txt $out/check_$pid.txt; fi
-  fi
-fi
-if [ -z "$hits" ] || { ! grep -q "^VIOLATION" $out/check_$pid.txt && grep -q "no obligation was generated" $out/check_$pid.txt; }; then
-  (cd $V && python3 check.py $pid --tier $tier > $out/check_$pid.txt 2>$out/check_$pid.err; echo "exit=$? (tier $tier, full check; native sweep flagged nothing the restricted runs could decide)" >> $out/check_$pid.txt)
-fi
-sif [ -n "$hits" ]; then
-  (cd $V && VERIF_ONLY="$hits" python3 check.py $pid --tier $tier > $out/check_$pid.txt 2>$out/check_$pid.err; echo "exit=$? (tier $tier, restricted to the harnesses the native sweep flagged: $hits)" >> $out/check_$pid.txt)
-  if ! grep -q "^VIOLATION" $out/check_$pid.txt && [ "$tier" = quick ]; then
-    # the flagged harnesses may belong to the thorough tier only (larger bounds, slow ones)
-    (cd $V && VERIF_ONLY="$hits" python3 check.py $pid --tier thorough > $out/check_${pid}_thorough.txt 2>$out/check_${pid}_thorough.err; echo "exit=$? (tier thorough, restricted to the harnesses the native sweep flagged: $hits)" >> $out/check_${pid}_thorough.txt)
-    if grep -q "^VIOLATION" $out/check_${pid}_thorough.txt; then cp $out/check_${pid}_thorough.txt $out/check_$pid.txt; fi
-  fi
-fi
-if [ -z "$hits" ] || { ! grep -q "^VIOLATION" $out/check_$pid.txt && grep -q "no obligation was generated" $out/check_$pid.txt; }; then
-  (cd $V && python3 check.py $pid --tier $tier > $out/check_$pid.txt 2>$out/check_$pid.err; echo "exit=$? (tier $tier, full check; native sweep flagged nothing the restricted runs could decide)" >> $out/check_$pid.txt)
-fi
- if [ -n "$hits" ]; then
-  (cd $V && VERIF_ONLY="$hits" python3 check.py $pid --tier $tier > $out/check_$pid.txt 2>$out/check_$pid.err; echo "exit=$? (tier $tier, restricted to the harnesses the native sweep flagged: $hits)" >> $out/check_$pid.txt)
-  if ! grep -q "^VIOLATION" $out/check_$pid.txt && [ "$tier" = quick ]; then
-    # the flagged harnesses may belong to the thorough tier only (larger bounds, slow ones)
-    (cd $V && VERIF_ONLY="$hits" python3 check.py $pid --tier thorough > $out/check_${pid}_thorough.txt 2>$out/check_${pid}_thorough.err; echo "exit=$? (tier thorough, restricted to the harnesses the native sweep flagged: $hits)" >> $out/check_${pid}_thorough.txt)
-    if grep -q "^VIOLATION" $out/check_${pid}_thorough.txt; then cp $out/check_${pid}_thorough.txt $out/check_$pid.txt; fi
-  fi
-fi
-if [ -z "$hits" ] || { ! grep -q "^VIOLATION" $out/check_$pid.txt && grep -q "no obligation was generated" $out/check_$pid.txt; }; then
-  (cd $V && python3 check.py $pid --tier $tier > $out/check_$pid.txt 2>$out/check_$pid.err; echo "exit=$? (tier $tier, full check; native sweep flagged nothing the restricted runs could decide)" >> $out/check_$pid.txt)
-fi
-wif [ -n "$hits" ]; then
-  (cd $V && VERIF_ONLY="$hits" python3 check.py $pid --tier $tier > $out/check_$pid.txt 2>$out/check_$pid.err; echo "exit=$? (tier $tier, restricted to the harnesses the native sweep flagged: $hits)" >> $out/check_$pid.txt)
-  if ! grep -q "^VIOLATION" $out/check_$pid.txt && [ "$tier" = quick ]; then
-    # the flagged harnesses may belong to the thorough tier only (larger bounds, slow ones)
-    (cd $V && VERIF_ONLY="$hits" python3 check.py $pid --tier thorough > $out/check_${pid}_thorough.txt 2>$out/check_${pid}_thorough.err; echo "exit=$? (tier thorough, restricted to the harnesses the native sweep flagged: $hits)" >> $out/check_${pid}_thorough.txt)
-    if grep -q "^VIOLATION" $out/check_${pid}_thorough.txt; then cp $out/check_${pid}_thorough.txt $out/check_$pid.txt; fi
-  fi
-fi
-if [ -z "$hits" ] || { ! grep -q "^VIOLATION" $out/check_$pid.txt && grep -q "no obligation was generated" $out/check_$pid.txt; }; then
-  (cd $V && python3 check.py $pid --tier $tier > $out/check_$pid.txt 2>$out/check_$pid.err; echo "exit=$? (tier $tier, full check; native sweep flagged nothing the restricted runs could decide)" >> $out/check_$pid.txt)
-fi
-hif [ -n "$hits" ]; then
-  (cd $V && VERIF_ONLY="$hits" python3 check.py $pid --tier $tier > $out/check_$pid.txt 2>$out/check_$pid.err; echo "exit=$? (tier $tier, restricted to the harnesses the native sweep flagged: $hits)" >> $out/check_$pid.txt)
-  if ! grep -q "^VIOLATION" $out/check_$pid.txt && [ "$tier" = quick ]; then
-    # the flagged harnesses may belong to the thorough tier only (larger bounds, slow ones)
-    (cd $V && VERIF_ONLY="$hits" python3 check.py $pid --tier thorough > $out/check_${pid}_thorough.txt 2>$out/check_${pid}_thorough.err; echo "exit=$? (tier thorough, restricted to the harnesses the native sweep flagged: $hits)" >> $out/check_${pid}_thorough.txt)
-    if grep -q "^VIOLATION" $out/check_${pid}_thorough.txt; then cp $out/check_${pid}_thorough.txt $out/check_$pid.txt; fi
-  fi
-fi
-if [ -z "$hits" ] || { ! grep -q "^VIOLATION" $out/check_$pid.txt && grep -q "no obligation was generated" $out/check_$pid.txt; }; then
-  (cd $V && python3 check.py $pid --tier $tier > $out/check_$pid.txt 2>$out/check_$pid.err; echo "exit=$? (tier $tier, full check; native sweep flagged nothing the restricted runs could decide)" >> $out/check_$pid.txt)
-fi
-eif [ -n "$hits" ]; then
-  (cd $V && VERIF_ONLY="$hits" python3 check.py $pid --tier $tier > $out/check_$pid.txt 2>$out/check_$pid.err; echo "exit=$? (tier $tier, restricted to the harnesses the native sweep flagged: $hits)" >> $out/check_$pid.txt)
-  if ! grep -q "^VIOLATION" $out/check_$pid.txt && [ "$tier" = quick ]; then
-    # the flagged harnesses may belong to the thorough tier only (larger bounds, slow ones)
-    (cd $V && VERIF_ONLY="$hits" python3 check.py $pid --tier thorough > $out/check_${pid}_thorough.txt 2>$out/check_${pid}_thorough.err; echo "exit=$? (tier thorough, restricted to the harnesses the native sweep flagged: $hits)" >> $out/check_${pid}_thorough.txt)
-    if grep -q "^VIOLATION" $out/check_${pid}_thorough.txt; then cp $out/check_${pid}_thorough.txt $out/check_$pid.txt; fi
-  fi
-fi
-if [ -z "$hits" ] || { ! grep -q "^VIOLATION" $out/check_$pid.txt && grep -q "no obligation was generated" $out/check_$pid.txt; }; then
-  (cd $V && python3 check.py $pid --tier $tier > $out/check_$pid.txt 2>$out/check_$pid.err; echo "exit=$? (tier $tier, full check; native sweep flagged nothing the restricted runs could decide)" >> $out/check_$pid.txt)
-fi
-nif [ -n "$hits" ]; then
-  (cd $V && VERIF_ONLY="$hits" python3 check.py $pid --tier $tier > $out/check_$pid.txt 2>$out/check_$pid.err; echo "exit=$? (tier $tier, restricted to the harnesses the native sweep flagged: $hits)" >> $out/check_$pid.txt)
-  if ! grep -q "^VIOLATION" $out/check_$pid.txt && [ "$tier" = quick ]; then
-    # the flagged harnesses may belong to the thorough tier only (larger bounds, slow ones)
-    (cd $V && VERIF_ONLY="$hits" python3 check.py $pid --tier thorough > $out/check_${pid}_thorough.txt 2>$out/check_${pid}_thorough.err; echo "exit=$? (tier thorough, restricted to the harnesses the native sweep flagged: $hits)" >> $out/check_${pid}_thorough.txt)
-    if grep -q "^VIOLATION" $out/check_${pid}_thorough.txt; then cp $out/check_${pid}_thorough.txt $out/check_$pid.txt; fi
-  fi
-fi
-if [ -z "$hits" ] || { ! grep -q "^VIOLATION" $out/check_$pid.txt && grep -q "no obligation was generated" $out/check_$pid.txt; }; then
-  (cd $V && python3 check.py $pid --tier $tier > $out/check_$pid.txt 2>$out/check_$pid.err; echo "exit=$? (tier $tier, full check; native sweep flagged nothing the restricted runs could decide)" >> $out/check_$pid.txt)
-fi
- if [ -n "$hits" ]; then
-  (cd $V && VERIF_ONLY="$hits" python3 check.py $pid --tier $tier > $out/check_$pid.txt 2>$out/check_$pid.err; echo "exit=$? (tier $tier, restricted to the harnesses the native sweep flagged: $hits)" >> $out/check_$pid.txt)
-  if ! grep -q "^VIOLATION" $out/check_$pid.txt && [ "$tier" = quick ]; then
-    # the flagged harnesses may belong to the thorough tier only (larger bounds, slow ones)
-    (cd $V && VERIF_ONLY="$hits" python3 check.py $pid --tier thorough > $out/check_${pid}_thorough.txt 2>$out/check_${pid}_thorough.err; echo "exit=$? (tier thorough, restricted to the harnesses the native sweep flagged: $hits)" >> $out/check_${pid}_thorough.txt)
-    if grep -q "^VIOLATION" $out/check_${pid}_thorough.txt; then cp $out/check_${pid}_thorough.txt $out/check_$pid.txt; fi
-  fi
-fi
-if [ -z "$hits" ] || { ! grep -q "^VIOLATION" $out/check_$pid.txt && grep -q "no obligation was generated" $out/check_$pid.txt; }; then
-  (cd $V && python3 check.py $pid --tier $tier > $out/check_$pid.txt 2>$out/check_$pid.err; echo "exit=$? (tier $tier, full check; native sweep flagged nothing the restricted runs could decide)" >> $out/check_$pid.txt)
-fi
-sif [ -n "$hits" ]; then
-  (cd $V && VERIF_ONLY="$hits" python3 check.py $pid --tier $tier > $out/check_$pid.txt 2>$out/check_$pid.err; echo "exit=$? (tier $tier, restricted to the harnesses the native sweep flagged: $hits)" >> $out/check_$pid.txt)
-  if ! grep -q "^VIOLATION" $out/check_$pid.txt && [ "$tier" = quick ]; then
-    # the flagged harnesses may belong to the thorough tier only (larger bounds, slow ones)
-    (cd $V && VERIF_ONLY="$hits" python3 check.py $pid --tier thorough > $out/check_${pid}_thorough.txt 2>$out/check_${pid}_thorough.err; echo "exit=$? (tier thorough, restricted to the harnesses the native sweep flagged: $hits)" >> $out/check_${pid}_thorough.txt)
-    if grep -q "^VIOLATION" $out/check_${pid}_thorough.txt; then cp $out/check_${pid}_thorough.txt $out/check_$pid.txt; fi
-  fi
-fi
-if [ -z "$hits" ] || { ! grep -q "^VIOLATION" $out/check_$pid.txt && grep -q "no obligation was generated" $out/check_$pid.txt; }; then
-  (cd $V && python3 check.py $pid --tier $tier > $out/check_$pid.txt 2>$out/check_$pid.err; echo "exit=$? (tier $tier, full check; native sweep flagged nothing the restricted runs could decide)" >> $out/check_$pid.txt)
-fi
-tif [ -n "$hits" ]; then
-  (cd $V && VERIF_ONLY="$hits" python3 check.py $pid --tier $tier > $out/check_$pid.txt 2>$out/check_$pid.err; echo "exit=$? (tier $tier, restricted to the harnesses the native sweep flagged: $hits)" >> $out/check_$pid.txt)
-  if ! grep -q "^VIOLATION" $out/check_$pid.txt && [ "$tier" = quick ]; then
-    # the flagged harnesses may belong to the thorough tier only (larger bounds, slow ones)
-    (cd $V && VERIF_ONLY="$hits" python3 check.py $pid --tier thorough > $out/check_${pid}_thorough.txt 2>$out/check_${pid}_thorough.err; echo "exit=$? (tier thorough, restricted to the harnesses the native sweep flagged: $hits)" >> $out/check_${pid}_thorough.txt)
-    if grep -q "^VIOLATION" $out/check_${pid}_thorough.txt; then cp $out/check_${pid}_thorough.txt $out/check_$pid.txt; fi
-  fi
-fi
-if [ -z "$hits" ] || { ! grep -q "^VIOLATION" $out/check_$pid.txt && grep -q "no obligation was generated" $out/check_$pid.txt; }; then
-  (cd $V && python3 check.py $pid --tier $tier > $out/check_$pid.txt 2>$out/check_$pid.err; echo "exit=$? (tier $tier, full check; native sweep flagged nothing the restricted runs could decide)" >> $out/check_$pid.txt)
-fi
-eif [ -n "$hits" ]; then
-  (cd $V && VERIF_ONLY="$hits" python3 check.py $pid --tier $tier > $out/check_$pid.txt 2>$out/check_$pid.err; echo "exit=$? (tier $tier, restricted to the harnesses the native sweep flagged: $hits)" >> $out/check_$pid.txt)
-  if ! grep -q "^VIOLATION" $out/check_$pid.txt && [ "$tier" = quick ]; then
-    # the flagged harnesses may belong to the thorough tier only (larger bounds, slow ones)
-    (cd $V && VERIF_ONLY="$hits" python3 check.py $pid --tier thorough > $out/check_${pid}_thorough.txt 2>$out/check_${pid}_thorough.err; echo "exit=$? (tier thorough, restricted to the harnesses the native sweep flagged: $hits)" >> $out/check_${pid}_thorough.txt)
-    if grep -q "^VIOLATION" $out/check_${pid}_thorough.txt; then cp $out/check_${pid}_thorough.txt $out/check_$pid.txt; fi
-  fi
-fi
-if [ -z "$hits" ] || { ! grep -q "^VIOLATION" $out/check_$pid.txt && grep -q "no obligation was generated" $out/check_$pid.txt; }; then
-  (cd $V && python3 check.py $pid --tier $tier > $out/check_$pid.txt 2>$out/check_$pid.err; echo "exit=$? (tier $tier, full check; native sweep flagged nothing the restricted runs could decide)" >> $out/check_$pid.txt)
-fi
-pif [ -n "$hits" ]; then
-  (cd $V && VERIF_ONLY="$hits" python3 check.py $pid --tier $tier > $out/check_$pid.txt 2>$out/check_$pid.err; echo "exit=$? (tier $tier, restricted to the harnesses the native sweep flagged: $hits)" >> $out/check_$pid.txt)
-  if ! grep -q "^VIOLATION" $out/check_$pid.txt && [ "$tier" = quick ]; then
-    # the flagged harnesses may belong to the thorough tier only (larger bounds, slow ones)
-    (cd $V && VERIF_ONLY="$hits" python3 check.py $pid --tier thorough > $out/check_${pid}_thorough.txt 2>$out/check_${pid}_thorough.err; echo "exit=$? (tier thorough, restricted to the harnesses the native sweep flagged: $hits)" >> $out/check_${pid}_thorough.txt)
-    if grep -q "^VIOLATION" $out/check_${pid}_thorough.txt; then cp $out/check_${pid}_thorough.txt $out/check_$pid.txt; fi
-  fi
-fi
-if [ -z "$hits" ] || { ! grep -q "^VIOLATION" $out/check_$pid.txt && grep -q "no obligation was generated" $out/check_$pid.txt; }; then
-  (cd $V && python3 check.py $pid --tier $tier > $out/check_$pid.txt 2>$out/check_$pid.err; echo "exit=$? (tier $tier, full check; native sweep flagged nothing the restricted runs could decide)" >> $out/check_$pid.txt)
-fi
- if [ -n "$hits" ]; then
-  (cd $V && VERIF_ONLY="$hits" python3 check.py $pid --tier $tier > $out/check_$pid.txt 2>$out/check_$pid.err; echo "exit=$? (tier $tier, restricted to the harnesses the native sweep flagged: $hits)" >> $out/check_$pid.txt)
-  if ! grep -q "^VIOLATION" $out/check_$pid.txt && [ "$tier" = quick ]; then
-    # the flagged harnesses may belong to the thorough tier only (larger bounds, slow ones)
-    (cd $V && VERIF_ONLY="$hits" python3 check.py $pid --tier thorough > $out/check_${pid}_thorough.txt 2>$out/check_${pid}_thorough.err; echo "exit=$? (tier thorough, restricted to the harnesses the native sweep flagged: $hits)" >> $out/check_${pid}_thorough.txt)
-    if grep -q "^VIOLATION" $out/check_${pid}_thorough.txt; then cp $out/check_${pid}_thorough.txt $out/check_$pid.txt; fi
-  fi
-fi
-if [ -z "$hits" ] || { ! grep -q "^VIOLATION" $out/check_$pid.txt && grep -q "no obligation was generated" $out/check_$pid.txt; }; then
-  (cd $V && python3 check.py $pid --tier $tier > $out/check_$pid.txt 2>$out/check_$pid.err; echo "exit=$? (tier $tier, full check; native sweep flagged nothing the restricted runs could decide)" >> $out/check_$pid.txt)
-fi
-1if [ -n "$hits" ]; then
-  (cd $V && VERIF_ONLY="$hits" python3 check.py $pid --tier $tier > $out/check_$pid.txt 2>$out/check_$pid.err; echo "exit=$? (tier $tier, restricted to the harnesses the native sweep flagged: $hits)" >> $out/check_$pid.txt)
-  if ! grep -q "^VIOLATION" $out/check_$pid.txt && [ "$tier" = quick ]; then
-    # the flagged harnesses may belong to the thorough tier only (larger bounds, slow ones)
-    (cd $V && VERIF_ONLY="$hits" python3 check.py $pid --tier thorough > $out/check_${pid}_thorough.txt 2>$out/check_${pid}_thorough.err; echo "exit=$? (tier thorough, restricted to the harnesses the native sweep flagged: $hits)" >> $out/check_${pid}_thorough.txt)
-    if grep -q "^VIOLATION" $out/check_${pid}_thorough.txt; then cp $out/check_${pid}_thorough.txt $out/check_$pid.txt; fi
-  fi
-fi
-if [ -z "$hits" ] || { ! grep -q "^VIOLATION" $out/check_$pid.txt && grep -q "no obligation was generated" $out/check_$pid.txt; }; then
-  (cd $V && python3 check.py $pid --tier $tier > $out/check_$pid.txt 2>$out/check_$pid.err; echo "exit=$? (tier $tier, full check; native sweep flagged nothing the restricted runs could decide)" >> $out/check_$pid.txt)
-fi
- if [ -n "$hits" ]; then
-  (cd $V && VERIF_ONLY="$hits" python3 check.py $pid --tier $tier > $out/check_$pid.txt 2>$out/check_$pid.err; echo "exit=$? (tier $tier, restricted to the harnesses the native sweep flagged: $hits)" >> $out/check_$pid.txt)
-  if ! grep -q "^VIOLATION" $out/check_$pid.txt && [ "$tier" = quick ]; then
-    # the flagged harnesses may belong to the thorough tier only (larger bounds, slow ones)
-    (cd $V && VERIF_ONLY="$hits" python3 check.py $pid --tier thorough > $out/check_${pid}_thorough.txt 2>$out/check_${pid}_thorough.err; echo "exit=$? (tier thorough, restricted to the harnesses the native sweep flagged: $hits)" >> $out/check_${pid}_thorough.txt)
-    if grep -q "^VIOLATION" $out/check_${pid}_thorough.txt; then cp $out/check_${pid}_thorough.txt $out/check_$pid.txt; fi
-  fi
-fi
-if [ -z "$hits" ] || { ! grep -q "^VIOLATION" $out/check_$pid.txt && grep -q "no obligation was generated" $out/check_$pid.txt; }; then
-  (cd $V && python3 check.py $pid --tier $tier > $out/check_$pid.txt 2>$out/check_$pid.err; echo "exit=$? (tier $tier, full check; native sweep flagged nothing the restricted runs could decide)" >> $out/check_$pid.txt)
-fi
-fif [ -n "$hits" ]; then
-  (cd $V && VERIF_ONLY="$hits" python3 check.py $pid --tier $tier > $out/check_$pid.txt 2>$out/check_$pid.err; echo "exit=$? (tier $tier, restricted to the harnesses the native sweep flagged: $hits)" >> $out/check_$pid.txt)
-  if ! grep -q "^VIOLATION" $out/check_$pid.txt && [ "$tier" = quick ]; then
-    # the flagged harnesses may belong to the thorough tier only (larger bounds, slow ones)
-    (cd $V && VERIF_ONLY="$hits" python3 check.py $pid --tier thorough > $out/check_${pid}_thorough.txt 2>$out/check_${pid}_thorough.err; echo "exit=$? (tier thorough, restricted to the harnesses the native sweep flagged: $hits)" >> $out/check_${pid}_thorough.txt)
-    if grep -q "^VIOLATION" $out/check_${pid}_thorough.txt; then cp $out/check_${pid}_thorough.txt $out/check_$pid.txt; fi
-  fi
-fi
-if [ -z "$hits" ] || { ! grep -q "^VIOLATION" $out/check_$pid.txt && grep -q "no obligation was generated" $out/check_$pid.txt; }; then
-  (cd $V && python3 check.py $pid --tier $tier > $out/check_$pid.txt 2>$out/check_$pid.err; echo "exit=$? (tier $tier, full check; native sweep flagged nothing the restricted runs could decide)" >> $out/check_$pid.txt)
-fi
-oif [ -n "$hits" ]; then
-  (cd $V && VERIF_ONLY="$hits" python3 check.py $pid --tier $tier > $out/check_$pid.txt 2>$out/check_$pid.err; echo "exit=$? (tier $tier, restricted to the harnesses the native sweep flagged: $hits)" >> $out/check_$pid.txt)
-  if ! grep -q "^VIOLATION" $out/check_$pid.txt && [ "$tier" = quick ]; then
-    # the flagged harnesses may belong to the thorough tier only (larger bounds, slow ones)
-    (cd $V && VERIF_ONLY="$hits" python3 check.py $pid --tier thorough > $out/check_${pid}_thorough.txt 2>$out/check_${pid}_thorough.err; echo "exit=$? (tier thorough, restricted to the harnesses the native sweep flagged: $hits)" >> $out/check_${pid}_thorough.txt)
-    if grep -q "^VIOLATION" $out/check_${pid}_thorough.txt; then cp $out/check_${pid}_thorough.txt $out/check_$pid.txt; fi
-  fi
-fi
-if [ -z "$hits" ] || { ! grep -q "^VIOLATION" $out/check_$pid.txt && grep -q "no obligation was generated" $out/check_$pid.txt; }; then
-  (cd $V && python3 check.py $pid --tier $tier > $out/check_$pid.txt 2>$out/check_$pid.err; echo "exit=$? (tier $tier, full check; native sweep flagged nothing the restricted runs could decide)" >> $out/check_$pid.txt)
-fi
-uif [ -n "$hits" ]; then
-  (cd $V && VERIF_ONLY="$hits" python3 check.py $pid --tier $tier > $out/check_$pid.txt 2>$out/check_$pid.err; echo "exit=$? (tier $tier, restricted to the harnesses the native sweep flagged: $hits)" >> $out/check_$pid.txt)
-  if ! grep -q "^VIOLATION" $out/check_$pid.txt && [ "$tier" = quick ]; then
-    # the flagged harnesses may belong to the thorough tier only (larger bounds, slow ones)
-    (cd $V && VERIF_ONLY="$hits" python3 check.py $pid --tier thorough > $out/check_${pid}_thorough.txt 2>$out/check_${pid}_thorough.err; echo "exit=$? (tier thorough, restricted to the harnesses the native sweep flagged: $hits)" >> $out/check_${pid}_thorough.txt)
-    if grep -q "^VIOLATION" $out/check_${pid}_thorough.txt; then cp $out/check_${pid}_thorough.txt $out/check_$pid.txt; fi
-  fi
-fi
-if [ -z "$hits" ] || { ! grep -q "^VIOLATION" $out/check_$pid.txt && grep -q "no obligation was generated" $out/check_$pid.txt; }; then
-  (cd $V && python3 check.py $pid --tier $tier > $out/check_$pid.txt 2>$out/check_$pid.err; echo "exit=$? (tier $tier, full check; native sweep flagged nothing the restricted runs could decide)" >> $out/check_$pid.txt)
-fi
-nif [ -n "$hits" ]; then
-  (cd $V && VERIF_ONLY="$hits" python3 check.py $pid --tier $tier > $out/check_$pid.txt 2>$out/check_$pid.err; echo "exit=$? (tier $tier, restricted to the harnesses the native sweep flagged: $hits)" >> $out/check_$pid.txt)
-  if ! grep -q "^VIOLATION" $out/check_$pid.txt && [ "$tier" = quick ]; then
-    # the flagged harnesses may belong to the thorough tier only (larger bounds, slow ones)
-    (cd $V && VERIF_ONLY="$hits" python3 check.py $pid --tier thorough > $out/check_${pid}_thorough.txt 2>$out/check_${pid}_thorough.err; echo "exit=$? (tier thorough, restricted to the harnesses the native sweep flagged: $hits)" >> $out/check_${pid}_thorough.txt)
-    if grep -q "^VIOLATION" $out/check_${pid}_thorough.txt; then cp $out/check_${pid}_thorough.txt $out/check_$pid.txt; fi
-  fi
-fi
-if [ -z "$hits" ] || { ! grep -q "^VIOLATION" $out/check_$pid.txt && grep -q "no obligation was generated" $out/check_$pid.txt; }; then
-  (cd $V && python3 check.py $pid --tier $tier > $out/check_$pid.txt 2>$out/check_$pid.err; echo "exit=$? (tier $tier, full check; native sweep flagged nothing the restricted runs could decide)" >> $out/check_$pid.txt)
-fi
-dif [ -n "$hits" ]; then
-  (cd $V && VERIF_ONLY="$hits" python3 check.py $pid --tier $tier > $out/check_$pid.txt 2>$out/check_$pid.err; echo "exit=$? (tier $tier, restricted to the harnesses the native sweep flagged: $hits)" >> $out/check_$pid.txt)
-  if ! grep -q "^VIOLATION" $out/check_$pid.txt && [ "$tier" = quick ]; then
-    # the flagged harnesses may belong to the thorough tier only (larger bounds, slow ones)
-    (cd $V && VERIF_ONLY="$hits" python3 check.py $pid --tier thorough > $out/check_${pid}_thorough.txt 2>$out/check_${pid}_thorough.err; echo "exit=$? (tier thorough, restricted to the harnesses the native sweep flagged: $hits)" >> $out/check_${pid}_thorough.txt)
-    if grep -q "^VIOLATION" $out/check_${pid}_thorough.txt; then cp $out/check_${pid}_thorough.txt $out/check_$pid.txt; fi
-  fi
-fi
-if [ -z "$hits" ] || { ! grep -q "^VIOLATION" $out/check_$pid.txt && grep -q "no obligation was generated" $out/check_$pid.txt; }; then
-  (cd $V && python3 check.py $pid --tier $tier > $out/check_$pid.txt 2>$out/check_$pid.err; echo "exit=$? (tier $tier, full check; native sweep flagged nothing the restricted runs could decide)" >> $out/check_$pid.txt)
-fi
- if [ -n "$hits" ]; then
-  (cd $V && VERIF_ONLY="$hits" python3 check.py $pid --tier $tier > $out/check_$pid.txt 2>$out/check_$pid.err; echo "exit=$? (tier $tier, restricted to the harnesses the native sweep flagged: $hits)" >> $out/check_$pid.txt)
-  if ! grep -q "^VIOLATION" $out/check_$pid.txt && [ "$tier" = quick ]; then
-    # the flagged harnesses may belong to the thorough tier only (larger bounds, slow ones)
-    (cd $V && VERIF_ONLY="$hits" python3 check.py $pid --tier thorough > $out/check_${pid}_thorough.txt 2>$out/check_${pid}_thorough.err; echo "exit=$? (tier thorough, restricted to the harnesses the native sweep flagged: $hits)" >> $out/check_${pid}_thorough.txt)
-    if grep -q "^VIOLATION" $out/check_${pid}_thorough.txt; then cp $out/check_${pid}_thorough.txt $out/check_$pid.txt; fi
-  fi
-fi
-if [ -z "$hits" ] || { ! grep -q "^VIOLATION" $out/check_$pid.txt && grep -q "no obligation was generated" $out/check_$pid.txt; }; then
-  (cd $V && python3 check.py $pid --tier $tier > $out/check_$pid.txt 2>$out/check_$pid.err; echo "exit=$? (tier $tier, full check; native sweep flagged nothing the restricted runs could decide)" >> $out/check_$pid.txt)
-fi
-sif [ -n "$hits" ]; then
-  (cd $V && VERIF_ONLY="$hits" python3 check.py $pid --tier $tier > $out/check_$pid.txt 2>$out/check_$pid.err; echo "exit=$? (tier $tier, restricted to the harnesses the native sweep flagged: $hits)" >> $out/check_$pid.txt)
-  if ! grep -q "^VIOLATION" $out/check_$pid.txt && [ "$tier" = quick ]; then
-    # the flagged harnesses may belong to the thorough tier only (larger bounds, slow ones)
-    (cd $V && VERIF_ONLY="$hits" python3 check.py $pid --tier thorough > $out/check_${pid}_thorough.txt 2>$out/check_${pid}_thorough.err; echo "exit=$? (tier thorough, restricted to the harnesses the native sweep flagged: $hits)" >> $out/check_${pid}_thorough.txt)
-    if grep -q "^VIOLATION" $out/check_${pid}_thorough.txt; then cp $out/check_${pid}_thorough.txt $out/check_$pid.txt; fi
-  fi
-fi
-if [ -z "$hits" ] || { ! grep -q "^VIOLATION" $out/check_$pid.txt && grep -q "no obligation was generated" $out/check_$pid.txt; }; then
-  (cd $V && python3 check.py $pid --tier $tier > $out/check_$pid.txt 2>$out/check_$pid.err; echo "exit=$? (tier $tier, full check; native sweep flagged nothing the restricted runs could decide)" >> $out/check_$pid.txt)
-fi
-oif [ -n "$hits" ]; then
-  (cd $V && VERIF_ONLY="$hits" python3 check.py $pid --tier $tier > $out/check_$pid.txt 2>$out/check_$pid.err; echo "exit=$? (tier $tier, restricted to the harnesses the native sweep flagged: $hits)" >> $out/check_$pid.txt)
-  if ! grep -q "^VIOLATION" $out/check_$pid.txt && [ "$tier" = quick ]; then
-    # the flagged harnesses may belong to the thorough tier only (larger bounds, slow ones)
-    (cd $V && VERIF_ONLY="$hits" python3 check.py $pid --tier thorough > $out/check_${pid}_thorough.txt 2>$out/check_${pid}_thorough.err; echo "exit=$? (tier thorough, restricted to the harnesses the native sweep flagged: $hits)" >> $out/check_${pid}_thorough.txt)
-    if grep -q "^VIOLATION" $out/check_${pid}_thorough.txt; then cp $out/check_${pid}_thorough.txt $out/check_$pid.txt; fi
-  fi
-fi
-if [ -z "$hits" ] || { ! grep -q "^VIOLATION" $out/check_$pid.txt && grep -q "no obligation was generated" $out/check_$pid.txt; }; then
-  (cd $V && python3 check.py $pid --tier $tier > $out/check_$pid.txt 2>$out/check_$pid.err; echo "exit=$? (tier $tier, full check; native sweep flagged nothing the restricted runs could decide)" >> $out/check_$pid.txt)
-fi
-mif [ -n "$hits" ]; then
-  (cd $V && VERIF_ONLY="$hits" python3 check.py $pid --tier $tier > $out/check_$pid.txt 2>$out/check_$pid.err; echo "exit=$? (tier $tier, restricted to the harnesses the native sweep flagged: $hits)" >> $out/check_$pid.txt)
-  if ! grep -q "^VIOLATION" $out/check_$pid.txt && [ "$tier" = quick ]; then
-    # the flagged harnesses may belong to the thorough tier only (larger bounds, slow ones)
-    (cd $V && VERIF_ONLY="$hits" python3 check.py $pid --tier thorough > $out/check_${pid}_thorough.txt 2>$out/check_${pid}_thorough.err; echo "exit=$? (tier thorough, restricted to the harnesses the native sweep flagged: $hits)" >> $out/check_${pid}_thorough.txt)
-    if grep -q "^VIOLATION" $out/check_${pid}_thorough.txt; then cp $out/check_${pid}_thorough.txt $out/check_$pid.txt; fi
-  fi
-fi
-if [ -z "$hits" ] || { ! grep -q "^VIOLATION" $out/check_$pid.txt && grep -q "no obligation was generated" $out/check_$pid.txt; }; then
-  (cd $V && python3 check.py $pid --tier $tier > $out/check_$pid.txt 2>$out/check_$pid.err; echo "exit=$? (tier $tier, full check; native sweep flagged nothing the restricted runs could decide)" >> $out/check_$pid.txt)
-fi
-eif [ -n "$hits" ]; then
-  (cd $V && VERIF_ONLY="$hits" python3 check.py $pid --tier $tier > $out/check_$pid.txt 2>$out/check_$pid.err; echo "exit=$? (tier $tier, restricted to the harnesses the native sweep flagged: $hits)" >> $out/check_$pid.txt)
-  if ! grep -q "^VIOLATION" $out/check_$pid.txt && [ "$tier" = quick ]; then
-    # the flagged harnesses may belong to the thorough tier only (larger bounds, slow ones)
-    (cd $V && VERIF_ONLY="$hits" python3 check.py $pid --tier thorough > $out/check_${pid}_thorough.txt 2>$out/check_${pid}_thorough.err; echo "exit=$? (tier thorough, restricted to the harnesses the native sweep flagged: $hits)" >> $out/check_${pid}_thorough.txt)
-    if grep -q "^VIOLATION" $out/check_${pid}_thorough.txt; then cp $out/check_${pid}_thorough.txt $out/check_$pid.txt; fi
-  fi
-fi
-if [ -z "$hits" ] || { ! grep -q "^VIOLATION" $out/check_$pid.txt && grep -q "no obligation was generated" $out/check_$pid.txt; }; then
-  (cd $V && python3 check.py $pid --tier $tier > $out/check_$pid.txt 2>$out/check_$pid.err; echo "exit=$? (tier $tier, full check; native sweep flagged nothing the restricted runs could decide)" >> $out/check_$pid.txt)
-fi
- if [ -n "$hits" ]; then
-  (cd $V && VERIF_ONLY="$hits" python3 check.py $pid --tier $tier > $out/check_$pid.txt 2>$out/check_$pid.err; echo "exit=$? (tier $tier, restricted to the harnesses the native sweep flagged: $hits)" >> $out/check_$pid.txt)
-  if ! grep -q "^VIOLATION" $out/check_$pid.txt && [ "$tier" = quick ]; then
-    # the flagged harnesses may belong to the thorough tier only (larger bounds, slow ones)
-    (cd $V && VERIF_ONLY="$hits" python3 check.py $pid --tier thorough > $out/check_${pid}_thorough.txt 2>$out/check_${pid}_thorough.err; echo "exit=$? (tier thorough, restricted to the harnesses the native sweep flagged: $hits)" >> $out/check_${pid}_thorough.txt)
-    if grep -q "^VIOLATION" $out/check_${pid}_thorough.txt; then cp $out/check_${pid}_thorough.txt $out/check_$pid.txt; fi
-  fi
-fi
-if [ -z "$hits" ] || { ! grep -q "^VIOLATION" $out/check_$pid.txt && grep -q "no obligation was generated" $out/check_$pid.txt; }; then
-  (cd $V && python3 check.py $pid --tier $tier > $out/check_$pid.txt 2>$out/check_$pid.err; echo "exit=$? (tier $tier, full check; native sweep flagged nothing the restricted runs could decide)" >> $out/check_$pid.txt)
-fi
-(if [ -n "$hits" ]; then
-  (cd $V && VERIF_ONLY="$hits" python3 check.py $pid --tier $tier > $out/check_$pid.txt 2>$out/check_$pid.err; echo "exit=$? (tier $tier, restricted to the harnesses the native sweep flagged: $hits)" >> $out/check_$pid.txt)
-  if ! grep -q "^VIOLATION" $out/check_$pid.txt && [ "$tier" = quick ]; then
-    # the flagged harnesses may belong to the thorough tier only (larger bounds, slow ones)
-    (cd $V && VERIF_ONLY="$hits" python3 check.py $pid --tier thorough > $out/check_${pid}_thorough.txt 2>$out/check_${pid}_thorough.err; echo "exit=$? (tier thorough, restricted to the harnesses the native sweep flagged: $hits)" >> $out/check_${pid}_thorough.txt)
-    if grep -q "^VIOLATION" $out/check_${pid}_thorough.txt; then cp $out/check_${pid}_thorough.txt $out/check_$pid.txt; fi
-  fi
-fi
-if [ -z "$hits" ] || { ! grep -q "^VIOLATION" $out/check_$pid.txt && grep -q "no obligation was generated" $out/check_$pid.txt; }; then
-  (cd $V && python3 check.py $pid --tier $tier > $out/check_$pid.txt 2>$out/check_$pid.err; echo "exit=$? (tier $tier, full check; native sweep flagged nothing the restricted runs could decide)" >> $out/check_$pid.txt)
-fi
-tif [ -n "$hits" ]; then
-  (cd $V && VERIF_ONLY="$hits" python3 check.py $pid --tier $tier > $out/check_$pid.txt 2>$out/check_$pid.err; echo "exit=$? (tier $tier, restricted to the harnesses the native sweep flagged: $hits)" >> $out/check_$pid.txt)
-  if ! grep -q "^VIOLATION" $out/check_$pid.txt && [ "$tier" = quick ]; then
-    # the flagged harnesses may belong to the thorough tier only (larger bounds, slow ones)
-    (cd $V && VERIF_ONLY="$hits" python3 check.py $pid --tier thorough > $out/check_${pid}_thorough.txt 2>$out/check_${pid}_thorough.err; echo "exit=$? (tier thorough, restricted to the harnesses the native sweep flagged: $hits)" >> $out/check_${pid}_thorough.txt)
-    if grep -q "^VIOLATION" $out/check_${pid}_thorough.txt; then cp $out/check_${pid}_thorough.txt $out/check_$pid.txt; fi
-  fi
-fi
-if [ -z "$hits" ] || { ! grep -q "^VIOLATION" $out/check_$pid.txt && grep -q "no obligation was generated" $out/check_$pid.txt; }; then
-  (cd $V && python3 check.py $pid --tier $tier > $out/check_$pid.txt 2>$out/check_$pid.err; echo "exit=$? (tier $tier, full check; native sweep flagged nothing the restricted runs could decide)" >> $out/check_$pid.txt)
-fi
-hif [ -n "$hits" ]; then
-  (cd $V && VERIF_ONLY="$hits" python3 check.py $pid --tier $tier > $out/check_$pid.txt 2>$out/check_$pid.err; echo "exit=$? (tier $tier, restricted to the harnesses the native sweep flagged: $hits)" >> $out/check_$pid.txt)
-  if ! grep -q "^VIOLATION" $out/check_$pid.txt && [ "$tier" = quick ]; then
-    # the flagged harnesses may belong to the thorough tier only (larger bounds, slow ones)
-    (cd $V && VERIF_ONLY="$hits" python3 check.py $pid --tier thorough > $out/check_${pid}_thorough.txt 2>$out/check_${pid}_thorough.err; echo "exit=$? (tier thorough, restricted to the harnesses the native sweep flagged: $hits)" >> $out/check_${pid}_thorough.txt)
-    if grep -q "^VIOLATION" $out/check_${pid}_thorough.txt; then cp $out/check_${pid}_thorough.txt $out/check_$pid.txt; fi
-  fi
-fi
-if [ -z "$hits" ] || { ! grep -q "^VIOLATION" $out/check_$pid.txt && grep -q "no obligation was generated" $out/check_$pid.txt; }; then
-  (cd $V && python3 check.py $pid --tier $tier > $out/check_$pid.txt 2>$out/check_$pid.err; echo "exit=$? (tier $tier, full check; native sweep flagged nothing the restricted runs could decide)" >> $out/check_$pid.txt)
-fi
-eif [ -n "$hits" ]; then
-  (cd $V && VERIF_ONLY="$hits" python3 check.py $pid --tier $tier > $out/check_$pid.txt 2>$out/check_$pid.err; echo "exit=$? (tier $tier, restricted to the harnesses the native sweep flagged: $hits)" >> $out/check_$pid.txt)
-  if ! grep -q "^VIOLATION" $out/check_$pid.txt && [ "$tier" = quick ]; then
-    # the flagged harnesses may belong to the thorough tier only (larger bounds, slow ones)
-    (cd $V && VERIF_ONLY="$hits" python3 check.py $pid --tier thorough > $out/check_${pid}_thorough.txt 2>$out/check_${pid}_thorough.err; echo "exit=$? (tier thorough, restricted to the harnesses the native sweep flagged: $hits)" >> $out/check_${pid}_thorough.txt)
-    if grep -q "^VIOLATION" $out/check_${pid}_thorough.txt; then cp $out/check_${pid}_thorough.txt $out/check_$pid.txt; fi
-  fi
-fi
-if [ -z "$hits" ] || { ! grep -q "^VIOLATION" $out/check_$pid.txt && grep -q "no obligation was generated" $out/check_$pid.txt; }; then
-  (cd $V && python3 check.py $pid --tier $tier > $out/check_$pid.txt 2>$out/check_$pid.err; echo "exit=$? (tier $tier, full check; native sweep flagged nothing the restricted runs could decide)" >> $out/check_$pid.txt)
-fi
- if [ -n "$hits" ]; then
-  (cd $V && VERIF_ONLY="$hits" python3 check.py $pid --tier $tier > $out/check_$pid.txt 2>$out/check_$pid.err; echo "exit=$? (tier $tier, restricted to the harnesses the native sweep flagged: $hits)" >> $out/check_$pid.txt)
-  if ! grep -q "^VIOLATION" $out/check_$pid.txt && [ "$tier" = quick ]; then
-    # the flagged harnesses may belong to the thorough tier only (larger bounds, slow ones)
-    (cd $V && VERIF_ONLY="$hits" python3 check.py $pid --tier thorough > $out/check_${pid}_thorough.txt 2>$out/check_${pid}_thorough.err; echo "exit=$? (tier thorough, restricted to the harnesses the native sweep flagged: $hits)" >> $out/check_${pid}_thorough.txt)
-    if grep -q "^VIOLATION" $out/check_${pid}_thorough.txt; then cp $out/check_${pid}_thorough.txt $out/check_$pid.txt; fi
-  fi
-fi
-if [ -z "$hits" ] || { ! grep -q "^VIOLATION" $out/check_$pid.txt && grep -q "no obligation was generated" $out/check_$pid.txt; }; then
-  (cd $V && python3 check.py $pid --tier $tier > $out/check_$pid.txt 2>$out/check_$pid.err; echo "exit=$? (tier $tier, full check; native sweep flagged nothing the restricted runs could decide)" >> $out/check_$pid.txt)
-fi
-rif [ -n "$hits" ]; then
-  (cd $V && VERIF_ONLY="$hits" python3 check.py $pid --tier $tier > $out/check_$pid.txt 2>$out/check_$pid.err; echo "exit=$? (tier $tier, restricted to the harnesses the native sweep flagged: $hits)" >> $out/check_$pid.txt)
-  if ! grep -q "^VIOLATION" $out/check_$pid.txt && [ "$tier" = quick ]; then
-    # the flagged harnesses may belong to the thorough tier only (larger bounds, slow ones)
-    (cd $V && VERIF_ONLY="$hits" python3 check.py $pid --tier thorough > $out/check_${pid}_thorough.txt 2>$out/check_${pid}_thorough.err; echo "exit=$? (tier thorough, restricted to the harnesses the native sweep flagged: $hits)" >> $out/check_${pid}_thorough.txt)
-    if grep -q "^VIOLATION" $out/check_${pid}_thorough.txt; then cp $out/check_${pid}_thorough.txt $out/check_$pid.txt; fi
-  fi
-fi
-if [ -z "$hits" ] || { ! grep -q "^VIOLATION" $out/check_$pid.txt && grep -q "no obligation was generated" $out/check_$pid.txt; }; then
-  (cd $V && python3 check.py $pid --tier $tier > $out/check_$pid.txt 2>$out/check_$pid.err; echo "exit=$? (tier $tier, full check; native sweep flagged nothing the restricted runs could decide)" >> $out/check_$pid.txt)
-fi
-eif [ -n "$hits" ]; then
-  (cd $V && VERIF_ONLY="$hits" python3 check.py $pid --tier $tier > $out/check_$pid.txt 2>$out/check_$pid.err; echo "exit=$? (tier $tier, restricted to the harnesses the native sweep flagged: $hits)" >> $out/check_$pid.txt)
-  if ! grep -q "^VIOLATION" $out/check_$pid.txt && [ "$tier" = quick ]; then
-    # the flagged harnesses may belong to the thorough tier only (larger bounds, slow ones)
-    (cd $V && VERIF_ONLY="$hits" python3 check.py $pid --tier thorough > $out/check_${pid}_thorough.txt 2>$out/check_${pid}_thorough.err; echo "exit=$? (tier thorough, restricted to the harnesses the native sweep flagged: $hits)" >> $out/check_${pid}_thorough.txt)
-    if grep -q "^VIOLATION" $out/check_${pid}_thorough.txt; then cp $out/check_${pid}_thorough.txt $out/check_$pid.txt; fi
-  fi
-fi
-if [ -z "$hits" ] || { ! grep -q "^VIOLATION" $out/check_$pid.txt && grep -q "no obligation was generated" $out/check_$pid.txt; }; then
-  (cd $V && python3 check.py $pid --tier $tier > $out/check_$pid.txt 2>$out/check_$pid.err; echo "exit=$? (tier $tier, full check; native sweep flagged nothing the restricted runs could decide)" >> $out/check_$pid.txt)
-fi
-gif [ -n "$hits" ]; then
-  (cd $V && VERIF_ONLY="$hits" python3 check.py $pid --tier $tier > $out/check_$pid.txt 2>$out/check_$pid.err; echo "exit=$? (tier $tier, restricted to the harnesses the native sweep flagged: $hits)" >> $out/check_$pid.txt)
-  if ! grep -q "^VIOLATION" $out/check_$pid.txt && [ "$tier" = quick ]; then
-    # the flagged harnesses may belong to the thorough tier only (larger bounds, slow ones)
-    (cd $V && VERIF_ONLY="$hits" python3 check.py $pid --tier thorough > $out/check_${pid}_thorough.txt 2>$out/check_${pid}_thorough.err; echo "exit=$? (tier thorough, restricted to the harnesses the native sweep flagged: $hits)" >> $out/check_${pid}_thorough.txt)
-    if grep -q "^VIOLATION" $out/check_${pid}_thorough.txt; then cp $out/check_${pid}_thorough.txt $out/check_$pid.txt; fi
-  fi
-fi
-if [ -z "$hits" ] || { ! grep -q "^VIOLATION" $out/check_$pid.txt && grep -q "no obligation was generated" $out/check_$pid.txt; }; then
-  (cd $V && python3 check.py $pid --tier $tier > $out/check_$pid.txt 2>$out/check_$pid.err; echo "exit=$? (tier $tier, full check; native sweep flagged nothing the restricted runs could decide)" >> $out/check_$pid.txt)
-fi
-iif [ -n "$hits" ]; then
-  (cd $V && VERIF_ONLY="$hits" python3 check.py $pid --tier $tier > $out/check_$pid.txt 2>$out/check_$pid.err; echo "exit=$? (tier $tier, restricted to the harnesses the native sweep flagged: $hits)" >> $out/check_$pid.txt)
-  if ! grep -q "^VIOLATION" $out/check_$pid.txt && [ "$tier" = quick ]; then
-    # the flagged harnesses may belong to the thorough tier only (larger bounds, slow ones)
-    (cd $V && VERIF_ONLY="$hits" python3 check.py $pid --tier thorough > $out/check_${pid}_thorough.txt 2>$out/check_${pid}_thorough.err; echo "exit=$? (tier thorough, restricted to the harnesses the native sweep flagged: $hits)" >> $out/check_${pid}_thorough.txt)
-    if grep -q "^VIOLATION" $out/check_${pid}_thorough.txt; then cp $out/check_${pid}_thorough.txt $out/check_$pid.txt; fi
-  fi
-fi
-if [ -z "$hits" ] || { ! grep -q "^VIOLATION" $out/check_$pid.txt && grep -q "no obligation was generated" $out/check_$pid.txt; }; then
-  (cd $V && python3 check.py $pid --tier $tier > $out/check_$pid.txt 2>$out/check_$pid.err; echo "exit=$? (tier $tier, full check; native sweep flagged nothing the restricted runs could decide)" >> $out/check_$pid.txt)
-fi
-sif [ -n "$hits" ]; then
-  (cd $V && VERIF_ONLY="$hits" python3 check.py $pid --tier $tier > $out/check_$pid.txt 2>$out/check_$pid.err; echo "exit=$? (tier $tier, restricted to the harnesses the native sweep flagged: $hits)" >> $out/check_$pid.txt)
-  if ! grep -q "^VIOLATION" $out/check_$pid.txt && [ "$tier" = quick ]; then
-    # the flagged harnesses may belong to the thorough tier only (larger bounds, slow ones)
-    (cd $V && VERIF_ONLY="$hits" python3 check.py $pid --tier thorough > $out/check_${pid}_thorough.txt 2>$out/check_${pid}_thorough.err; echo "exit=$? (tier thorough, restricted to the harnesses the native sweep flagged: $hits)" >> $out/check_${pid}_thorough.txt)
-    if grep -q "^VIOLATION" $out/check_${pid}_thorough.txt; then cp $out/check_${pid}_thorough.txt $out/check_$pid.txt; fi
-  fi
-fi
-if [ -z "$hits" ] || { ! grep -q "^VIOLATION" $out/check_$pid.txt && grep -q "no obligation was generated" $out/check_$pid.txt; }; then
-  (cd $V && python3 check.py $pid --tier $tier > $out/check_$pid.txt 2>$out/check_$pid.err; echo "exit=$? (tier $tier, full check; native sweep flagged nothing the restricted runs could decide)" >> $out/check_$pid.txt)
-fi
-tif [ -n "$hits" ]; then
-  (cd $V && VERIF_ONLY="$hits" python3 check.py $pid --tier $tier > $out/check_$pid.txt 2>$out/check_$pid.err; echo "exit=$? (tier $tier, restricted to the harnesses the native sweep flagged: $hits)" >> $out/check_$pid.txt)
-  if ! grep -q "^VIOLATION" $out/check_$pid.txt && [ "$tier" = quick ]; then
-    # the flagged harnesses may belong to the thorough tier only (larger bounds, slow ones)
-    (cd $V && VERIF_ONLY="$hits" python3 check.py $pid --tier thorough > $out/check_${pid}_thorough.txt 2>$out/check_${pid}_thorough.err; echo "exit=$? (tier thorough, restricted to the harnesses the native sweep flagged: $hits)" >> $out/check_${pid}_thorough.txt)
-    if grep -q "^VIOLATION" $out/check_${pid}_thorough.txt; then cp $out/check_${pid}_thorough.txt $out/check_$pid.txt; fi
-  fi
-fi
-if [ -z "$hits" ] || { ! grep -q "^VIOLATION" $out/check_$pid.txt && grep -q "no obligation was generated" $out/check_$pid.txt; }; then
-  (cd $V && python3 check.py $pid --tier $tier > $out/check_$pid.txt 2>$out/check_$pid.err; echo "exit=$? (tier $tier, full check; native sweep flagged nothing the restricted runs could decide)" >> $out/check_$pid.txt)
-fi
-eif [ -n "$hits" ]; then
-  (cd $V && VERIF_ONLY="$hits" python3 check.py $pid --tier $tier > $out/check_$pid.txt 2>$out/check_$pid.err; echo "exit=$? (tier $tier, restricted to the harnesses the native sweep flagged: $hits)" >> $out/check_$pid.txt)
-  if ! grep -q "^VIOLATION" $out/check_$pid.txt && [ "$tier" = quick ]; then
-    # the flagged harnesses may belong to the thorough tier only (larger bounds, slow ones)
-    (cd $V && VERIF_ONLY="$hits" python3 check.py $pid --tier thorough > $out/check_${pid}_thorough.txt 2>$out/check_${pid}_thorough.err; echo "exit=$? (tier thorough, restricted to the harnesses the native sweep flagged: $hits)" >> $out/check_${pid}_thorough.txt)
-    if grep -q "^VIOLATION" $out/check_${pid}_thorough.txt; then cp $out/check_${pid}_thorough.txt $out/check_$pid.txt; fi
-  fi
-fi
-if [ -z "$hits" ] || { ! grep -q "^VIOLATION" $out/check_$pid.txt && grep -q "no obligation was generated" $out/check_$pid.txt; }; then
-  (cd $V && python3 check.py $pid --tier $tier > $out/check_$pid.txt 2>$out/check_$pid.err; echo "exit=$? (tier $tier, full check; native sweep flagged nothing the restricted runs could decide)" >> $out/check_$pid.txt)
-fi
-rif [ -n "$hits" ]; then
-  (cd $V && VERIF_ONLY="$hits" python3 check.py $pid --tier $tier > $out/check_$pid.txt 2>$out/check_$pid.err; echo "exit=$? (tier $tier, restricted to the harnesses the native sweep flagged: $hits)" >> $out/check_$pid.txt)
-  if ! grep -q "^VIOLATION" $out/check_$pid.txt && [ "$tier" = quick ]; then
-    # the flagged harnesses may belong to the thorough tier only (larger bounds, slow ones)
-    (cd $V && VERIF_ONLY="$hits" python3 check.py $pid --tier thorough > $out/check_${pid}_thorough.txt 2>$out/check_${pid}_thorough.err; echo "exit=$? (tier thorough, restricted to the harnesses the native sweep flagged: $hits)" >> $out/check_${pid}_thorough.txt)
-    if grep -q "^VIOLATION" $out/check_${pid}_thorough.txt; then cp $out/check_${pid}_thorough.txt $out/check_$pid.txt; fi
-  fi
-fi
-if [ -z "$hits" ] || { ! grep -q "^VIOLATION" $out/check_$pid.txt && grep -q "no obligation was generated" $out/check_$pid.txt; }; then
-  (cd $V && python3 check.py $pid --tier $tier > $out/check_$pid.txt 2>$out/check_$pid.err; echo "exit=$? (tier $tier, full check; native sweep flagged nothing the restricted runs could decide)" >> $out/check_$pid.txt)
-fi
-eif [ -n "$hits" ]; then
-  (cd $V && VERIF_ONLY="$hits" python3 check.py $pid --tier $tier > $out/check_$pid.txt 2>$out/check_$pid.err; echo "exit=$? (tier $tier, restricted to the harnesses the native sweep flagged: $hits)" >> $out/check_$pid.txt)
-  if ! grep -q "^VIOLATION" $out/check_$pid.txt && [ "$tier" = quick ]; then
-    # the flagged harnesses may belong to the thorough tier only (larger bounds, slow ones)
-    (cd $V && VERIF_ONLY="$hits" python3 check.py $pid --tier thorough > $out/check_${pid}_thorough.txt 2>$out/check_${pid}_thorough.err; echo "exit=$? (tier thorough, restricted to the harnesses the native sweep flagged: $hits)" >> $out/check_${pid}_thorough.txt)
-    if grep -q "^VIOLATION" $out/check_${pid}_thorough.txt; then cp $out/check_${pid}_thorough.txt $out/check_$pid.txt; fi
-  fi
-fi
-if [ -z "$hits" ] || { ! grep -q "^VIOLATION" $out/check_$pid.txt && grep -q "no obligation was generated" $out/check_$pid.txt; }; then
-  (cd $V && python3 check.py $pid --tier $tier > $out/check_$pid.txt 2>$out/check_$pid.err; echo "exit=$? (tier $tier, full check; native sweep flagged nothing the restricted runs could decide)" >> $out/check_$pid.txt)
-fi
-dif [ -n "$hits" ]; then
-  (cd $V && VERIF_ONLY="$hits" python3 check.py $pid --tier $tier > $out/check_$pid.txt 2>$out/check_$pid.err; echo "exit=$? (tier $tier, restricted to the harnesses the native sweep flagged: $hits)" >> $out/check_$pid.txt)
-  if ! grep -q "^VIOLATION" $out/check_$pid.txt && [ "$tier" = quick ]; then
-    # the flagged harnesses may belong to the thorough tier only (larger bounds, slow ones)
-    (cd $V && VERIF_ONLY="$hits" python3 check.py $pid --tier thorough > $out/check_${pid}_thorough.txt 2>$out/check_${pid}_thorough.err; echo "exit=$? (tier thorough, restricted to the harnesses the native sweep flagged: $hits)" >> $out/check_${pid}_thorough.txt)
-    if grep -q "^VIOLATION" $out/check_${pid}_thorough.txt; then cp $out/check_${pid}_thorough.txt $out/check_$pid.txt; fi
-  fi
-fi
-if [ -z "$hits" ] || { ! grep -q "^VIOLATION" $out/check_$pid.txt && grep -q "no obligation was generated" $out/check_$pid.txt; }; then
-  (cd $V && python3 check.py $pid --tier $tier > $out/check_$pid.txt 2>$out/check_$pid.err; echo "exit=$? (tier $tier, full check; native sweep flagged nothing the restricted runs could decide)" >> $out/check_$pid.txt)
-fi
- if [ -n "$hits" ]; then
-  (cd $V && VERIF_ONLY="$hits" python3 check.py $pid --tier $tier > $out/check_$pid.txt 2>$out/check_$pid.err; echo "exit=$? (tier $tier, restricted to the harnesses the native sweep flagged: $hits)" >> $out/check_$pid.txt)
-  if ! grep -q "^VIOLATION" $out/check_$pid.txt && [ "$tier" = quick ]; then
-    # the flagged harnesses may belong to the thorough tier only (larger bounds, slow ones)
-    (cd $V && VERIF_ONLY="$hits" python3 check.py $pid --tier thorough > $out/check_${pid}_thorough.txt 2>$out/check_${pid}_thorough.err; echo "exit=$? (tier thorough, restricted to the harnesses the native sweep flagged: $hits)" >> $out/check_${pid}_thorough.txt)
-    if grep -q "^VIOLATION" $out/check_${pid}_thorough.txt; then cp $out/check_${pid}_thorough.txt $out/check_$pid.txt; fi
-  fi
-fi
-if [ -z "$hits" ] || { ! grep -q "^VIOLATION" $out/check_$pid.txt && grep -q "no obligation was generated" $out/check_$pid.txt; }; then
-  (cd $V && python3 check.py $pid --tier $tier > $out/check_$pid.txt 2>$out/check_$pid.err; echo "exit=$? (tier $tier, full check; native sweep flagged nothing the restricted runs could decide)" >> $out/check_$pid.txt)
-fi
-cif [ -n "$hits" ]; then
-  (cd $V && VERIF_ONLY="$hits" python3 check.py $pid --tier $tier > $out/check_$pid.txt 2>$out/check_$pid.err; echo "exit=$? (tier $tier, restricted to the harnesses the native sweep flagged: $hits)" >> $out/check_$pid.txt)
-  if ! grep -q "^VIOLATION" $out/check_$pid.txt && [ "$tier" = quick ]; then
-    # the flagged harnesses may belong to the thorough tier only (larger bounds, slow ones)
-    (cd $V && VERIF_ONLY="$hits" python3 check.py $pid --tier thorough > $out/check_${pid}_thorough.txt 2>$out/check_${pid}_thorough.err; echo "exit=$? (tier thorough, restricted to the harnesses the native sweep flagged: $hits)" >> $out/check_${pid}_thorough.txt)
-    if grep -q "^VIOLATION" $out/check_${pid}_thorough.txt; then cp $out/check_${pid}_thorough.txt $out/check_$pid.txt; fi
-  fi
-fi
-if [ -z "$hits" ] || { ! grep -q "^VIOLATION" $out/check_$pid.txt && grep -q "no obligation was generated" $out/check_$pid.txt; }; then
-  (cd $V && python3 check.py $pid --tier $tier > $out/check_$pid.txt 2>$out/check_$pid.err; echo "exit=$? (tier $tier, full check; native sweep flagged nothing the restricted runs could decide)" >> $out/check_$pid.txt)
-fi
-oif [ -n "$hits" ]; then
-  (cd $V && VERIF_ONLY="$hits" python3 check.py $pid --tier $tier > $out/check_$pid.txt 2>$out/check_$pid.err; echo "exit=$? (tier $tier, restricted to the harnesses the native sweep flagged: $hits)" >> $out/check_$pid.txt)
-  if ! grep -q "^VIOLATION" $out/check_$pid.txt && [ "$tier" = quick ]; then
-    # the flagged harnesses may belong to the thorough tier only (larger bounds, slow ones)
-    (cd $V && VERIF_ONLY="$hits" python3 check.py $pid --tier thorough > $out/check_${pid}_thorough.txt 2>$out/check_${pid}_thorough.err; echo "exit=$? (tier thorough, restricted to the harnesses the native sweep flagged: $hits)" >> $out/check_${pid}_thorough.txt)
-    if grep -q "^VIOLATION" $out/check_${pid}_thorough.txt; then cp $out/check_${pid}_thorough.txt $out/check_$pid.txt; fi
-  fi
-fi
-if [ -z "$hits" ] || { ! grep -q "^VIOLATION" $out/check_$pid.txt && grep -q "no obligation was generated" $out/check_$pid.txt; }; then
-  (cd $V && python3 check.py $pid --tier $tier > $out/check_$pid.txt 2>$out/check_$pid.err; echo "exit=$? (tier $tier, full check; native sweep flagged nothing the restricted runs could decide)" >> $out/check_$pid.txt)
-fi
-mif [ -n "$hits" ]; then
-  (cd $V && VERIF_ONLY="$hits" python3 check.py $pid --tier $tier > $out/check_$pid.txt 2>$out/check_$pid.err; echo "exit=$? (tier $tier, restricted to the harnesses the native sweep flagged: $hits)" >> $out/check_$pid.txt)
-  if ! grep -q "^VIOLATION" $out/check_$pid.txt && [ "$tier" = quick ]; then
-    # the flagged harnesses may belong to the thorough tier only (larger bounds, slow ones)
-    (cd $V && VERIF_ONLY="$hits" python3 check.py $pid --tier thorough > $out/check_${pid}_thorough.txt 2>$out/check_${pid}_thorough.err; echo "exit=$? (tier thorough, restricted to the harnesses the native sweep flagged: $hits)" >> $out/check_${pid}_thorough.txt)
-    if grep -q "^VIOLATION" $out/check_${pid}_thorough.txt; then cp $out/check_${pid}_thorough.txt $out/check_$pid.txt; fi
-  fi
-fi
-if [ -z "$hits" ] || { ! grep -q "^VIOLATION" $out/check_$pid.txt && grep -q "no obligation was generated" $out/check_$pid.txt; }; then
-  (cd $V && python3 check.py $pid --tier $tier > $out/check_$pid.txt 2>$out/check_$pid.err; echo "exit=$? (tier $tier, full check; native sweep flagged nothing the restricted runs could decide)" >> $out/check_$pid.txt)
-fi
-mif [ -n "$hits" ]; then
-  (cd $V && VERIF_ONLY="$hits" python3 check.py $pid --tier $tier > $out/check_$pid.txt 2>$out/check_$pid.err; echo "exit=$? (tier $tier, restricted to the harnesses the native sweep flagged: $hits)" >> $out/check_$pid.txt)
-  if ! grep -q "^VIOLATION" $out/check_$pid.txt && [ "$tier" = quick ]; then
-    # the flagged harnesses may belong to the thorough tier only (larger bounds, slow ones)
-    (cd $V && VERIF_ONLY="$hits" python3 check.py $pid --tier thorough > $out/check_${pid}_thorough.txt 2>$out/check_${pid}_thorough.err; echo "exit=$? (tier thorough, restricted to the harnesses the native sweep flagged: $hits)" >> $out/check_${pid}_thorough.txt)
-    if grep -q "^VIOLATION" $out/check_${pid}_thorough.txt; then cp $out/check_${pid}_thorough.txt $out/check_$pid.txt; fi
-  fi
-fi
-if [ -z "$hits" ] || { ! grep -q "^VIOLATION" $out/check_$pid.txt && grep -q "no obligation was generated" $out/check_$pid.txt; }; then
-  (cd $V && python3 check.py $pid --tier $tier > $out/check_$pid.txt 2>$out/check_$pid.err; echo "exit=$? (tier $tier, full check; native sweep flagged nothing the restricted runs could decide)" >> $out/check_$pid.txt)
-fi
-aif [ -n "$hits" ]; then
-  (cd $V && VERIF_ONLY="$hits" python3 check.py $pid --tier $tier > $out/check_$pid.txt 2>$out/check_$pid.err; echo "exit=$? (tier $tier, restricted to the harnesses the native sweep flagged: $hits)" >> $out/check_$pid.txt)
-  if ! grep -q "^VIOLATION" $out/check_$pid.txt && [ "$tier" = quick ]; then
-    # the flagged harnesses may belong to the thorough tier only (larger bounds, slow ones)
-    (cd $V && VERIF_ONLY="$hits" python3 check.py $pid --tier thorough > $out/check_${pid}_thorough.txt 2>$out/check_${pid}_thorough.err; echo "exit=$? (tier thorough, restricted to the harnesses the native sweep flagged: $hits)" >> $out/check_${pid}_thorough.txt)
-    if grep -q "^VIOLATION" $out/check_${pid}_thorough.txt; then cp $out/check_${pid}_thorough.txt $out/check_$pid.txt; fi
-  fi
-fi
-if [ -z "$hits" ] || { ! grep -q "^VIOLATION" $out/check_$pid.txt && grep -q "no obligation was generated" $out/check_$pid.txt; }; then
-  (cd $V && python3 check.py $pid --tier $tier > $out/check_$pid.txt 2>$out/check_$pid.err; echo "exit=$? (tier $tier, full check; native sweep flagged nothing the restricted runs could decide)" >> $out/check_$pid.txt)
-fi
-nif [ -n "$hits" ]; then
-  (cd $V && VERIF_ONLY="$hits" python3 check.py $pid --tier $tier > $out/check_$pid.txt 2>$out/check_$pid.err; echo "exit=$? (tier $tier, restricted to the harnesses the native sweep flagged: $hits)" >> $out/check_$pid.txt)
-  if ! grep -q "^VIOLATION" $out/check_$pid.txt && [ "$tier" = quick ]; then
-    # the flagged harnesses may belong to the thorough tier only (larger bounds, slow ones)
-    (cd $V && VERIF_ONLY="$hits" python3 check.py $pid --tier thorough > $out/check_${pid}_thorough.txt 2>$out/check_${pid}_thorough.err; echo "exit=$? (tier thorough, restricted to the harnesses the native sweep flagged: $hits)" >> $out/check_${pid}_thorough.txt)
-    if grep -q "^VIOLATION" $out/check_${pid}_thorough.txt; then cp $out/check_${pid}_thorough.txt $out/check_$pid.txt; fi
-  fi
-fi
-if [ -z "$hits" ] || { ! grep -q "^VIOLATION" $out/check_$pid.txt && grep -q "no obligation was generated" $out/check_$pid.txt; }; then
-  (cd $V && python3 check.py $pid --tier $tier > $out/check_$pid.txt 2>$out/check_$pid.err; echo "exit=$? (tier $tier, full check; native sweep flagged nothing the restricted runs could decide)" >> $out/check_$pid.txt)
-fi
-dif [ -n "$hits" ]; then
-  (cd $V && VERIF_ONLY="$hits" python3 check.py $pid --tier $tier > $out/check_$pid.txt 2>$out/check_$pid.err; echo "exit=$? (tier $tier, restricted to the harnesses the native sweep flagged: $hits)" >> $out/check_$pid.txt)
-  if ! grep -q "^VIOLATION" $out/check_$pid.txt && [ "$tier" = quick ]; then
-    # the flagged harnesses may belong to the thorough tier only (larger bounds, slow ones)
-    (cd $V && VERIF_ONLY="$hits" python3 check.py $pid --tier thorough > $out/check_${pid}_thorough.txt 2>$out/check_${pid}_thorough.err; echo "exit=$? (tier thorough, restricted to the harnesses the native sweep flagged: $hits)" >> $out/check_${pid}_thorough.txt)
-    if grep -q "^VIOLATION" $out/check_${pid}_thorough.txt; then cp $out/check_${pid}_thorough.txt $out/check_$pid.txt; fi
-  fi
-fi
-if [ -z "$hits" ] || { ! grep -q "^VIOLATION" $out/check_$pid.txt && grep -q "no obligation was generated" $out/check_$pid.txt; }; then
-  (cd $V && python3 check.py $pid --tier $tier > $out/check_$pid.txt 2>$out/check_$pid.err; echo "exit=$? (tier $tier, full check; native sweep flagged nothing the restricted runs could decide)" >> $out/check_$pid.txt)
-fi
- if [ -n "$hits" ]; then
-  (cd $V && VERIF_ONLY="$hits" python3 check.py $pid --tier $tier > $out/check_$pid.txt 2>$out/check_$pid.err; echo "exit=$? (tier $tier, restricted to the harnesses the native sweep flagged: $hits)" >> $out/check_$pid.txt)
-  if ! grep -q "^VIOLATION" $out/check_$pid.txt && [ "$tier" = quick ]; then
-    # the flagged harnesses may belong to the thorough tier only (larger bounds, slow ones)
-    (cd $V && VERIF_ONLY="$hits" python3 check.py $pid --tier thorough > $out/check_${pid}_thorough.txt 2>$out/check_${pid}_thorough.err; echo "exit=$? (tier thorough, restricted to the harnesses the native sweep flagged: $hits)" >> $out/check_${pid}_thorough.txt)
-    if grep -q "^VIOLATION" $out/check_${pid}_thorough.txt; then cp $out/check_${pid}_thorough.txt $out/check_$pid.txt; fi
-  fi
-fi
-if [ -z "$hits" ] || { ! grep -q "^VIOLATION" $out/check_$pid.txt && grep -q "no obligation was generated" $out/check_$pid.txt; }; then
-  (cd $V && python3 check.py $pid --tier $tier > $out/check_$pid.txt 2>$out/check_$pid.err; echo "exit=$? (tier $tier, full check; native sweep flagged nothing the restricted runs could decide)" >> $out/check_$pid.txt)
-fi
-rif [ -n "$hits" ]; then
-  (cd $V && VERIF_ONLY="$hits" python3 check.py $pid --tier $tier > $out/check_$pid.txt 2>$out/check_$pid.err; echo "exit=$? (tier $tier, restricted to the harnesses the native sweep flagged: $hits)" >> $out/check_$pid.txt)
-  if ! grep -q "^VIOLATION" $out/check_$pid.txt && [ "$tier" = quick ]; then
-    # the flagged harnesses may belong to the thorough tier only (larger bounds, slow ones)
-    (cd $V && VERIF_ONLY="$hits" python3 check.py $pid --tier thorough > $out/check_${pid}_thorough.txt 2>$out/check_${pid}_thorough.err; echo "exit=$? (tier thorough, restricted to the harnesses the native sweep flagged: $hits)" >> $out/check_${pid}_thorough.txt)
-    if grep -q "^VIOLATION" $out/check_${pid}_thorough.txt; then cp $out/check_${pid}_thorough.txt $out/check_$pid.txt; fi
-  fi
-fi
-if [ -z "$hits" ] || { ! grep -q "^VIOLATION" $out/check_$pid.txt && grep -q "no obligation was generated" $out/check_$pid.txt; }; then
-  (cd $V && python3 check.py $pid --tier $tier > $out/check_$pid.txt 2>$out/check_$pid.err; echo "exit=$? (tier $tier, full check; native sweep flagged nothing the restricted runs could decide)" >> $out/check_$pid.txt)
-fi
-uif [ -n "$hits" ]; then
-  (cd $V && VERIF_ONLY="$hits" python3 check.py $pid --tier $tier > $out/check_$pid.txt 2>$out/check_$pid.err; echo "exit=$? (tier $tier, restricted to the harnesses the native sweep flagged: $hits)" >> $out/check_$pid.txt)
-  if ! grep -q "^VIOLATION" $out/check_$pid.txt && [ "$tier" = quick ]; then
-    # the flagged harnesses may belong to the thorough tier only (larger bounds, slow ones)
-    (cd $V && VERIF_ONLY="$hits" python3 check.py $pid --tier thorough > $out/check_${pid}_thorough.txt 2>$out/check_${pid}_thorough.err; echo "exit=$? (tier thorough, restricted to the harnesses the native sweep flagged: $hits)" >> $out/check_${pid}_thorough.txt)
-    if grep -q "^VIOLATION" $out/check_${pid}_thorough.txt; then cp $out/check_${pid}_thorough.txt $out/check_$pid.txt; fi
-  fi
-fi
-if [ -z "$hits" ] || { ! grep -q "^VIOLATION" $out/check_$pid.txt && grep -q "no obligation was generated" $out/check_$pid.txt; }; then
-  (cd $V && python3 check.py $pid --tier $tier > $out/check_$pid.txt 2>$out/check_$pid.err; echo "exit=$? (tier $tier, full check; native sweep flagged nothing the restricted runs could decide)" >> $out/check_$pid.txt)
-fi
-nif [ -n "$hits" ]; then
-  (cd $V && VERIF_ONLY="$hits" python3 check.py $pid --tier $tier > $out/check_$pid.txt 2>$out/check_$pid.err; echo "exit=$? (tier $tier, restricted to the harnesses the native sweep flagged: $hits)" >> $out/check_$pid.txt)
-  if ! grep -q "^VIOLATION" $out/check_$pid.txt && [ "$tier" = quick ]; then
-    # the flagged harnesses may belong to the thorough tier only (larger bounds, slow ones)
-    (cd $V && VERIF_ONLY="$hits" python3 check.py $pid --tier thorough > $out/check_${pid}_thorough.txt 2>$out/check_${pid}_thorough.err; echo "exit=$? (tier thorough, restricted to the harnesses the native sweep flagged: $hits)" >> $out/check_${pid}_thorough.txt)
-    if grep -q "^VIOLATION" $out/check_${pid}_thorough.txt; then cp $out/check_${pid}_thorough.txt $out/check_$pid.txt; fi
-  fi
-fi
-if [ -z "$hits" ] || { ! grep -q "^VIOLATION" $out/check_$pid.txt && grep -q "no obligation was generated" $out/check_$pid.txt; }; then
-  (cd $V && python3 check.py $pid --tier $tier > $out/check_$pid.txt 2>$out/check_$pid.err; echo "exit=$? (tier $tier, full check; native sweep flagged nothing the restricted runs could decide)" >> $out/check_$pid.txt)
-fi
-sif [ -n "$hits" ]; then
-  (cd $V && VERIF_ONLY="$hits" python3 check.py $pid --tier $tier > $out/check_$pid.txt 2>$out/check_$pid.err; echo "exit=$? (tier $tier, restricted to the harnesses the native sweep flagged: $hits)" >> $out/check_$pid.txt)
-  if ! grep -q "^VIOLATION" $out/check_$pid.txt && [ "$tier" = quick ]; then
-    # the flagged harnesses may belong to the thorough tier only (larger bounds, slow ones)
-    (cd $V && VERIF_ONLY="$hits" python3 check.py $pid --tier thorough > $out/check_${pid}_thorough.txt 2>$out/check_${pid}_thorough.err; echo "exit=$? (tier thorough, restricted to the harnesses the native sweep flagged: $hits)" >> $out/check_${pid}_thorough.txt)
-    if grep -q "^VIOLATION" $out/check_${pid}_thorough.txt; then cp $out/check_${pid}_thorough.txt $out/check_$pid.txt; fi
-  fi
-fi
-if [ -z "$hits" ] || { ! grep -q "^VIOLATION" $out/check_$pid.txt && grep -q "no obligation was generated" $out/check_$pid.txt; }; then
-  (cd $V && python3 check.py $pid --tier $tier > $out/check_$pid.txt 2>$out/check_$pid.err; echo "exit=$? (tier $tier, full check; native sweep flagged nothing the restricted runs could decide)" >> $out/check_$pid.txt)
-fi
- if [ -n "$hits" ]; then
-  (cd $V && VERIF_ONLY="$hits" python3 check.py $pid --tier $tier > $out/check_$pid.txt 2>$out/check_$pid.err; echo "exit=$? (tier $tier, restricted to the harnesses the native sweep flagged: $hits)" >> $out/check_$pid.txt)
-  if ! grep -q "^VIOLATION" $out/check_$pid.txt && [ "$tier" = quick ]; then
-    # the flagged harnesses may belong to the thorough tier only (larger bounds, slow ones)
-    (cd $V && VERIF_ONLY="$hits" python3 check.py $pid --tier thorough > $out/check_${pid}_thorough.txt 2>$out/check_${pid}_thorough.err; echo "exit=$? (tier thorough, restricted to the harnesses the native sweep flagged: $hits)" >> $out/check_${pid}_thorough.txt)
-    if grep -q "^VIOLATION" $out/check_${pid}_thorough.txt; then cp $out/check_${pid}_thorough.txt $out/check_$pid.txt; fi
-  fi
-fi
-if [ -z "$hits" ] || { ! grep -q "^VIOLATION" $out/check_$pid.txt && grep -q "no obligation was generated" $out/check_$pid.txt; }; then
-  (cd $V && python3 check.py $pid --tier $tier > $out/check_$pid.txt 2>$out/check_$pid.err; echo "exit=$? (tier $tier, full check; native sweep flagged nothing the restricted runs could decide)" >> $out/check_$pid.txt)
-fi
-aif [ -n "$hits" ]; then
-  (cd $V && VERIF_ONLY="$hits" python3 check.py $pid --tier $tier > $out/check_$pid.txt 2>$out/check_$pid.err; echo "exit=$? (tier $tier, restricted to the harnesses the native sweep flagged: $hits)" >> $out/check_$pid.txt)
-  if ! grep -q "^VIOLATION" $out/check_$pid.txt && [ "$tier" = quick ]; then
-    # the flagged harnesses may belong to the thorough tier only (larger bounds, slow ones)
-    (cd $V && VERIF_ONLY="$hits" python3 check.py $pid --tier thorough > $out/check_${pid}_thorough.txt 2>$out/check_${pid}_thorough.err; echo "exit=$? (tier thorough, restricted to the harnesses the native sweep flagged: $hits)" >> $out/check_${pid}_thorough.txt)
-    if grep -q "^VIOLATION" $out/check_${pid}_thorough.txt; then cp $out/check_${pid}_thorough.txt $out/check_$pid.txt; fi
-  fi
-fi
-if [ -z "$hits" ] || { ! grep -q "^VIOLATION" $out/check_$pid.txt && grep -q "no obligation was generated" $out/check_$pid.txt; }; then
-  (cd $V && python3 check.py $pid --tier $tier > $out/check_$pid.txt 2>$out/check_$pid.err; echo "exit=$? (tier $tier, full check; native sweep flagged nothing the restricted runs could decide)" >> $out/check_$pid.txt)
-fi
-
-if [ -n "$hits" ]; then
-  (cd $V && VERIF_ONLY="$hits" python3 check.py $pid --tier $tier > $out/check_$pid.txt 2>$out/check_$pid.err; echo "exit=$? (tier $tier, restricted to the harnesses the native sweep flagged: $hits)" >> $out/check_$pid.txt)
-  if ! grep -q "^VIOLATION" $out/check_$pid.txt && [ "$tier" = quick ]; then
-    # the flagged harnesses may belong to the thorough tier only (larger bounds, slow ones)
-    (cd $V && VERIF_ONLY="$hits" python3 check.py $pid --tier thorough > $out/check_${pid}_thorough.txt 2>$out/check_${pid}_thorough.err; echo "exit=$? (tier thorough, restricted to the harnesses the native sweep flagged: $hits)" >> $out/check_${pid}_thorough.txt)
-    if grep -q "^VIOLATION" $out/check_${pid}_thorough.txt; then cp $out/check_${pid}_thorough.txt $out/check_$pid.txt; fi
-  fi
-fi
-if [ -z "$hits" ] || { ! grep -q "^VIOLATION" $out/check_$pid.txt && grep -q "no obligation was generated" $out/check_$pid.txt; }; then
-  (cd $V && python3 check.py $pid --tier $tier > $out/check_$pid.txt 2>$out/check_$pid.err; echo "exit=$? (tier $tier, full check; native sweep flagged nothing the restricted runs could decide)" >> $out/check_$pid.txt)
-fi
-#if [ -n "$hits" ]; then
-  (cd $V && VERIF_ONLY="$hits" python3 check.py $pid --tier $tier > $out/check_$pid.txt 2>$out/check_$pid.err; echo "exit=$? (tier $tier, restricted to the harnesses the native sweep flagged: $hits)" >> $out/check_$pid.txt)
-  if ! grep -q "^VIOLATION" $out/check_$pid.txt && [ "$tier" = quick ]; then
-    # the flagged harnesses may belong to the thorough tier only (larger bounds, slow ones)
-    (cd $V && VERIF_ONLY="$hits" python3 check.py $pid --tier thorough > $out/check_${pid}_thorough.txt 2>$out/check_${pid}_thorough.err; echo "exit=$? (tier thorough, restricted to the harnesses the native sweep flagged: $hits)" >> $out/check_${pid}_thorough.txt)
-    if grep -q "^VIOLATION" $out/check_${pid}_thorough.txt; then cp $out/check_${pid}_thorough.txt $out/check_$pid.txt; fi
-  fi
-fi
-if [ -z "$hits" ] || { ! grep -q "^VIOLATION" $out/check_$pid.txt && grep -q "no obligation was generated" $out/check_$pid.txt; }; then
-  (cd $V && python3 check.py $pid --tier $tier > $out/check_$pid.txt 2>$out/check_$pid.err; echo "exit=$? (tier $tier, full check; native sweep flagged nothing the restricted runs could decide)" >> $out/check_$pid.txt)
-fi
- if [ -n "$hits" ]; then
-  (cd $V && VERIF_ONLY="$hits" python3 check.py $pid --tier $tier > $out/check_$pid.txt 2>$out/check_$pid.err; echo "exit=$? (tier $tier, restricted to the harnesses the native sweep flagged: $hits)" >> $out/check_$pid.txt)
-  if ! grep -q "^VIOLATION" $out/check_$pid.txt && [ "$tier" = quick ]; then
-    # the flagged harnesses may belong to the thorough tier only (larger bounds, slow ones)
-    (cd $V && VERIF_ONLY="$hits" python3 check.py $pid --tier thorough > $out/check_${pid}_thorough.txt 2>$out/check_${pid}_thorough.err; echo "exit=$? (tier thorough, restricted to the harnesses the native sweep flagged: $hits)" >> $out/check_${pid}_thorough.txt)
-    if grep -q "^VIOLATION" $out/check_${pid}_thorough.txt; then cp $out/check_${pid}_thorough.txt $out/check_$pid.txt; fi
-  fi
-fi
-if [ -z "$hits" ] || { ! grep -q "^VIOLATION" $out/check_$pid.txt && grep -q "no obligation was generated" $out/check_$pid.txt; }; then
-  (cd $V && python3 check.py $pid --tier $tier > $out/check_$pid.txt 2>$out/check_$pid.err; echo "exit=$? (tier $tier, full check; native sweep flagged nothing the restricted runs could decide)" >> $out/check_$pid.txt)
-fi
-sif [ -n "$hits" ]; then
-  (cd $V && VERIF_ONLY="$hits" python3 check.py $pid --tier $tier > $out/check_$pid.txt 2>$out/check_$pid.err; echo "exit=$? (tier $tier, restricted to the harnesses the native sweep flagged: $hits)" >> $out/check_$pid.txt)
-  if ! grep -q "^VIOLATION" $out/check_$pid.txt && [ "$tier" = quick ]; then
-    # the flagged harnesses may belong to the thorough tier only (larger bounds, slow ones)
-    (cd $V && VERIF_ONLY="$hits" python3 check.py $pid --tier thorough > $out/check_${pid}_thorough.txt 2>$out/check_${pid}_thorough.err; echo "exit=$? (tier thorough, restricted to the harnesses the native sweep flagged: $hits)" >> $out/check_${pid}_thorough.txt)
-    if grep -q "^VIOLATION" $out/check_${pid}_thorough.txt; then cp $out/check_${pid}_thorough.txt $out/check_$pid.txt; fi
-  fi
-fi
-if [ -z "$hits" ] || { ! grep -q "^VIOLATION" $out/check_$pid.txt && grep -q "no obligation was generated" $out/check_$pid.txt; }; then
-  (cd $V && python3 check.py $pid --tier $tier > $out/check_$pid.txt 2>$out/check_$pid.err; echo "exit=$? (tier $tier, full check; native sweep flagged nothing the restricted runs could decide)" >> $out/check_$pid.txt)
-fi
-uif [ -n "$hits" ]; then
-  (cd $V && VERIF_ONLY="$hits" python3 check.py $pid --tier $tier > $out/check_$pid.txt 2>$out/check_$pid.err; echo "exit=$? (tier $tier, restricted to the harnesses the native sweep flagged: $hits)" >> $out/check_$pid.txt)
-  if ! grep -q "^VIOLATION" $out/check_$pid.txt && [ "$tier" = quick ]; then
-    # the flagged harnesses may belong to the thorough tier only (larger bounds, slow ones)
-    (cd $V && VERIF_ONLY="$hits" python3 check.py $pid --tier thorough > $out/check_${pid}_thorough.txt 2>$out/check_${pid}_thorough.err; echo "exit=$? (tier thorough, restricted to the harnesses the native sweep flagged: $hits)" >> $out/check_${pid}_thorough.txt)
-    if grep -q "^VIOLATION" $out/check_${pid}_thorough.txt; then cp $out/check_${pid}_thorough.txt $out/check_$pid.txt; fi
-  fi
-fi
-if [ -z "$hits" ] || { ! grep -q "^VIOLATION" $out/check_$pid.txt && grep -q "no obligation was generated" $out/check_$pid.txt; }; then
-  (cd $V && python3 check.py $pid --tier $tier > $out/check_$pid.txt 2>$out/check_$pid.err; echo "exit=$? (tier $tier, full check; native sweep flagged nothing the restricted runs could decide)" >> $out/check_$pid.txt)
-fi
-pif [ -n "$hits" ]; then
-  (cd $V && VERIF_ONLY="$hits" python3 check.py $pid --tier $tier > $out/check_$pid.txt 2>$out/check_$pid.err; echo "exit=$? (tier $tier, restricted to the harnesses the native sweep flagged: $hits)" >> $out/check_$pid.txt)
-  if ! grep -q "^VIOLATION" $out/check_$pid.txt && [ "$tier" = quick ]; then
-    # the flagged harnesses may belong to the thorough tier only (larger bounds, slow ones)
-    (cd $V && VERIF_ONLY="$hits" python3 check.py $pid --tier thorough > $out/check_${pid}_thorough.txt 2>$out/check_${pid}_thorough.err; echo "exit=$? (tier thorough, restricted to the harnesses the native sweep flagged: $hits)" >> $out/check_${pid}_thorough.txt)
-    if grep -q "^VIOLATION" $out/check_${pid}_thorough.txt; then cp $out/check_${pid}_thorough.txt $out/check_$pid.txt; fi
-  fi
-fi
-if [ -z "$hits" ] || { ! grep -q "^VIOLATION" $out/check_$pid.txt && grep -q "no obligation was generated" $out/check_$pid.txt; }; then
-  (cd $V && python3 check.py $pid --tier $tier > $out/check_$pid.txt 2>$out/check_$pid.err; echo "exit=$? (tier $tier, full check; native sweep flagged nothing the restricted runs could decide)" >> $out/check_$pid.txt)
-fi
-eif [ -n "$hits" ]; then
-  (cd $V && VERIF_ONLY="$hits" python3 check.py $pid --tier $tier > $out/check_$pid.txt 2>$out/check_$pid.err; echo "exit=$? (tier $tier, restricted to the harnesses the native sweep flagged: $hits)" >> $out/check_$pid.txt)
-  if ! grep -q "^VIOLATION" $out/check_$pid.txt && [ "$tier" = quick ]; then
-    # the flagged harnesses may belong to the thorough tier only (larger bounds, slow ones)
-    (cd $V && VERIF_ONLY="$hits" python3 check.py $pid --tier thorough > $out/check_${pid}_thorough.txt 2>$out/check_${pid}_thorough.err; echo "exit=$? (tier thorough, restricted to the harnesses the native sweep flagged: $hits)" >> $out/check_${pid}_thorough.txt)
-    if grep -q "^VIOLATION" $out/check_${pid}_thorough.txt; then cp $out/check_${pid}_thorough.txt $out/check_$pid.txt; fi
-  fi
-fi
-if [ -z "$hits" ] || { ! grep -q "^VIOLATION" $out/check_$pid.txt && grep -q "no obligation was generated" $out/check_$pid.txt; }; then
-  (cd $V && python3 check.py $pid --tier $tier > $out/check_$pid.txt 2>$out/check_$pid.err; echo "exit=$? (tier $tier, full check; native sweep flagged nothing the restricted runs could decide)" >> $out/check_$pid.txt)
-fi
-rif [ -n "$hits" ]; then
-  (cd $V && VERIF_ONLY="$hits" python3 check.py $pid --tier $tier > $out/check_$pid.txt 2>$out/check_$pid.err; echo "exit=$? (tier $tier, restricted to the harnesses the native sweep flagged: $hits)" >> $out/check_$pid.txt)
-  if ! grep -q "^VIOLATION" $out/check_$pid.txt && [ "$tier" = quick ]; then
-    # the flagged harnesses may belong to the thorough tier only (larger bounds, slow ones)
-    (cd $V && VERIF_ONLY="$hits" python3 check.py $pid --tier thorough > $out/check_${pid}_thorough.txt 2>$out/check_${pid}_thorough.err; echo "exit=$? (tier thorough, restricted to the harnesses the native sweep flagged: $hits)" >> $out/check_${pid}_thorough.txt)
-    if grep -q "^VIOLATION" $out/check_${pid}_thorough.txt; then cp $out/check_${pid}_thorough.txt $out/check_$pid.txt; fi
-  fi
-fi
-if [ -z "$hits" ] || { ! grep -q "^VIOLATION" $out/check_$pid.txt && grep -q "no obligation was generated" $out/check_$pid.txt; }; then
-  (cd $V && python3 check.py $pid --tier $tier > $out/check_$pid.txt 2>$out/check_$pid.err; echo "exit=$? (tier $tier, full check; native sweep flagged nothing the restricted runs could decide)" >> $out/check_$pid.txt)
-fi
-sif [ -n "$hits" ]; then
-  (cd $V && VERIF_ONLY="$hits" python3 check.py $pid --tier $tier > $out/check_$pid.txt 2>$out/check_$pid.err; echo "exit=$? (tier $tier, restricted to the harnesses the native sweep flagged: $hits)" >> $out/check_$pid.txt)
-  if ! grep -q "^VIOLATION" $out/check_$pid.txt && [ "$tier" = quick ]; then
-    # the flagged harnesses may belong to the thorough tier only (larger bounds, slow ones)
-    (cd $V && VERIF_ONLY="$hits" python3 check.py $pid --tier thorough > $out/check_${pid}_thorough.txt 2>$out/check_${pid}_thorough.err; echo "exit=$? (tier thorough, restricted to the harnesses the native sweep flagged: $hits)" >> $out/check_${pid}_thorough.txt)
-    if grep -q "^VIOLATION" $out/check_${pid}_thorough.txt; then cp $out/check_${pid}_thorough.txt $out/check_$pid.txt; fi
-  fi
-fi
-if [ -z "$hits" ] || { ! grep -q "^VIOLATION" $out/check_$pid.txt && grep -q "no obligation was generated" $out/check_$pid.txt; }; then
-  (cd $V && python3 check.py $pid --tier $tier > $out/check_$pid.txt 2>$out/check_$pid.err; echo "exit=$? (tier $tier, full check; native sweep flagged nothing the restricted runs could decide)" >> $out/check_$pid.txt)
-fi
-eif [ -n "$hits" ]; then
-  (cd $V && VERIF_ONLY="$hits" python3 check.py $pid --tier $tier > $out/check_$pid.txt 2>$out/check_$pid.err; echo "exit=$? (tier $tier, restricted to the harnesses the native sweep flagged: $hits)" >> $out/check_$pid.txt)
-  if ! grep -q "^VIOLATION" $out/check_$pid.txt && [ "$tier" = quick ]; then
-    # the flagged harnesses may belong to the thorough tier only (larger bounds, slow ones)
-    (cd $V && VERIF_ONLY="$hits" python3 check.py $pid --tier thorough > $out/check_${pid}_thorough.txt 2>$out/check_${pid}_thorough.err; echo "exit=$? (tier thorough, restricted to the harnesses the native sweep flagged: $hits)" >> $out/check_${pid}_thorough.txt)
-    if grep -q "^VIOLATION" $out/check_${pid}_thorough.txt; then cp $out/check_${pid}_thorough.txt $out/check_$pid.txt; fi
-  fi
-fi
-if [ -z "$hits" ] || { ! grep -q "^VIOLATION" $out/check_$pid.txt && grep -q "no obligation was generated" $out/check_$pid.txt; }; then
-  (cd $V && python3 check.py $pid --tier $tier > $out/check_$pid.txt 2>$out/check_$pid.err; echo "exit=$? (tier $tier, full check; native sweep flagged nothing the restricted runs could decide)" >> $out/check_$pid.txt)
-fi
-tif [ -n "$hits" ]; then
-  (cd $V && VERIF_ONLY="$hits" python3 check.py $pid --tier $tier > $out/check_$pid.txt 2>$out/check_$pid.err; echo "exit=$? (tier $tier, restricted to the harnesses the native sweep flagged: $hits)" >> $out/check_$pid.txt)
-  if ! grep -q "^VIOLATION" $out/check_$pid.txt && [ "$tier" = quick ]; then
-    # the flagged harnesses may belong to the thorough tier only (larger bounds, slow ones)
-    (cd $V && VERIF_ONLY="$hits" python3 check.py $pid --tier thorough > $out/check_${pid}_thorough.txt 2>$out/check_${pid}_thorough.err; echo "exit=$? (tier thorough, restricted to the harnesses the native sweep flagged: $hits)" >> $out/check_${pid}_thorough.txt)
-    if grep -q "^VIOLATION" $out/check_${pid}_thorough.txt; then cp $out/check_${pid}_thorough.txt $out/check_$pid.txt; fi
-  fi
-fi
-if [ -z "$hits" ] || { ! grep -q "^VIOLATION" $out/check_$pid.txt && grep -q "no obligation was generated" $out/check_$pid.txt; }; then
-  (cd $V && python3 check.py $pid --tier $tier > $out/check_$pid.txt 2>$out/check_$pid.err; echo "exit=$? (tier $tier, full check; native sweep flagged nothing the restricted runs could decide)" >> $out/check_$pid.txt)
-fi
- if [ -n "$hits" ]; then
-  (cd $V && VERIF_ONLY="$hits" python3 check.py $pid --tier $tier > $out/check_$pid.txt 2>$out/check_$pid.err; echo "exit=$? (tier $tier, restricted to the harnesses the native sweep flagged: $hits)" >> $out/check_$pid.txt)
-  if ! grep -q "^VIOLATION" $out/check_$pid.txt && [ "$tier" = quick ]; then
-    # the flagged harnesses may belong to the thorough tier only (larger bounds, slow ones)
-    (cd $V && VERIF_ONLY="$hits" python3 check.py $pid --tier thorough > $out/check_${pid}_thorough.txt 2>$out/check_${pid}_thorough.err; echo "exit=$? (tier thorough, restricted to the harnesses the native sweep flagged: $hits)" >> $out/check_${pid}_thorough.txt)
-    if grep -q "^VIOLATION" $out/check_${pid}_thorough.txt; then cp $out/check_${pid}_thorough.txt $out/check_$pid.txt; fi
-  fi
-fi
-if [ -z "$hits" ] || { ! grep -q "^VIOLATION" $out/check_$pid.txt && grep -q "no obligation was generated" $out/check_$pid.txt; }; then
-  (cd $V && python3 check.py $pid --tier $tier > $out/check_$pid.txt 2>$out/check_$pid.err; echo "exit=$? (tier $tier, full check; native sweep flagged nothing the restricted runs could decide)" >> $out/check_$pid.txt)
-fi
-oif [ -n "$hits" ]; then
-  (cd $V && VERIF_ONLY="$hits" python3 check.py $pid --tier $tier > $out/check_$pid.txt 2>$out/check_$pid.err; echo "exit=$? (tier $tier, restricted to the harnesses the native sweep flagged: $hits)" >> $out/check_$pid.txt)
-  if ! grep -q "^VIOLATION" $out/check_$pid.txt && [ "$tier" = quick ]; then
-    # the flagged harnesses may belong to the thorough tier only (larger bounds, slow ones)
-    (cd $V && VERIF_ONLY="$hits" python3 check.py $pid --tier thorough > $out/check_${pid}_thorough.txt 2>$out/check_${pid}_thorough.err; echo "exit=$? (tier thorough, restricted to the harnesses the native sweep flagged: $hits)" >> $out/check_${pid}_thorough.txt)
-    if grep -q "^VIOLATION" $out/check_${pid}_thorough.txt; then cp $out/check_${pid}_thorough.txt $out/check_$pid.txt; fi
-  fi
-fi
-if [ -z "$hits" ] || { ! grep -q "^VIOLATION" $out/check_$pid.txt && grep -q "no obligation was generated" $out/check_$pid.txt; }; then
-  (cd $V && python3 check.py $pid --tier $tier > $out/check_$pid.txt 2>$out/check_$pid.err; echo "exit=$? (tier $tier, full check; native sweep flagged nothing the restricted runs could decide)" >> $out/check_$pid.txt)
-fi
-fif [ -n "$hits" ]; then
-  (cd $V && VERIF_ONLY="$hits" python3 check.py $pid --tier $tier > $out/check_$pid.txt 2>$out/check_$pid.err; echo "exit=$? (tier $tier, restricted to the harnesses the native sweep flagged: $hits)" >> $out/check_$pid.txt)
-  if ! grep -q "^VIOLATION" $out/check_$pid.txt && [ "$tier" = quick ]; then
-    # the flagged harnesses may belong to the thorough tier only (larger bounds, slow ones)
-    (cd $V && VERIF_ONLY="$hits" python3 check.py $pid --tier thorough > $out/check_${pid}_thorough.txt 2>$out/check_${pid}_thorough.err; echo "exit=$? (tier thorough, restricted to the harnesses the native sweep flagged: $hits)" >> $out/check_${pid}_thorough.txt)
-    if grep -q "^VIOLATION" $out/check_${pid}_thorough.txt; then cp $out/check_${pid}_thorough.txt $out/check_$pid.txt; fi
-  fi
-fi
-if [ -z "$hits" ] || { ! grep -q "^VIOLATION" $out/check_$pid.txt && grep -q "no obligation was generated" $out/check_$pid.txt; }; then
-  (cd $V && python3 check.py $pid --tier $tier > $out/check_$pid.txt 2>$out/check_$pid.err; echo "exit=$? (tier $tier, full check; native sweep flagged nothing the restricted runs could decide)" >> $out/check_$pid.txt)
-fi
- if [ -n "$hits" ]; then
-  (cd $V && VERIF_ONLY="$hits" python3 check.py $pid --tier $tier > $out/check_$pid.txt 2>$out/check_$pid.err; echo "exit=$? (tier $tier, restricted to the harnesses the native sweep flagged: $hits)" >> $out/check_$pid.txt)
-  if ! grep -q "^VIOLATION" $out/check_$pid.txt && [ "$tier" = quick ]; then
-    # the flagged harnesses may belong to the thorough tier only (larger bounds, slow ones)
-    (cd $V && VERIF_ONLY="$hits" python3 check.py $pid --tier thorough > $out/check_${pid}_thorough.txt 2>$out/check_${pid}_thorough.err; echo "exit=$? (tier thorough, restricted to the harnesses the native sweep flagged: $hits)" >> $out/check_${pid}_thorough.txt)
-    if grep -q "^VIOLATION" $out/check_${pid}_thorough.txt; then cp $out/check_${pid}_thorough.txt $out/check_$pid.txt; fi
-  fi
-fi
-if [ -z "$hits" ] || { ! grep -q "^VIOLATION" $out/check_$pid.txt && grep -q "no obligation was generated" $out/check_$pid.txt; }; then
-  (cd $V && python3 check.py $pid --tier $tier > $out/check_$pid.txt 2>$out/check_$pid.err; echo "exit=$? (tier $tier, full check; native sweep flagged nothing the restricted runs could decide)" >> $out/check_$pid.txt)
-fi
-tif [ -n "$hits" ]; then
-  (cd $V && VERIF_ONLY="$hits" python3 check.py $pid --tier $tier > $out/check_$pid.txt 2>$out/check_$pid.err; echo "exit=$? (tier $tier, restricted to the harnesses the native sweep flagged: $hits)" >> $out/check_$pid.txt)
-  if ! grep -q "^VIOLATION" $out/check_$pid.txt && [ "$tier" = quick ]; then
-    # the flagged harnesses may belong to the thorough tier only (larger bounds, slow ones)
-    (cd $V && VERIF_ONLY="$hits" python3 check.py $pid --tier thorough > $out/check_${pid}_thorough.txt 2>$out/check_${pid}_thorough.err; echo "exit=$? (tier thorough, restricted to the harnesses the native sweep flagged: $hits)" >> $out/check_${pid}_thorough.txt)
-    if grep -q "^VIOLATION" $out/check_${pid}_thorough.txt; then cp $out/check_${pid}_thorough.txt $out/check_$pid.txt; fi
-  fi
-fi
-if [ -z "$hits" ] || { ! grep -q "^VIOLATION" $out/check_$pid.txt && grep -q "no obligation was generated" $out/check_$pid.txt; }; then
-  (cd $V && python3 check.py $pid --tier $tier > $out/check_$pid.txt 2>$out/check_$pid.err; echo "exit=$? (tier $tier, full check; native sweep flagged nothing the restricted runs could decide)" >> $out/check_$pid.txt)
-fi
-hif [ -n "$hits" ]; then
-  (cd $V && VERIF_ONLY="$hits" python3 check.py $pid --tier $tier > $out/check_$pid.txt 2>$out/check_$pid.err; echo "exit=$? (tier $tier, restricted to the harnesses the native sweep flagged: $hits)" >> $out/check_$pid.txt)
-  if ! grep -q "^VIOLATION" $out/check_$pid.txt && [ "$tier" = quick ]; then
-    # the flagged harnesses may belong to the thorough tier only (larger bounds, slow ones)
-    (cd $V && VERIF_ONLY="$hits" python3 check.py $pid --tier thorough > $out/check_${pid}_thorough.txt 2>$out/check_${pid}_thorough.err; echo "exit=$? (tier thorough, restricted to the harnesses the native sweep flagged: $hits)" >> $out/check_${pid}_thorough.txt)
-    if grep -q "^VIOLATION" $out/check_${pid}_thorough.txt; then cp $out/check_${pid}_thorough.txt $out/check_$pid.txt; fi
-  fi
-fi
-if [ -z "$hits" ] || { ! grep -q "^VIOLATION" $out/check_$pid.txt && grep -q "no obligation was generated" $out/check_$pid.txt; }; then
-  (cd $V && python3 check.py $pid --tier $tier > $out/check_$pid.txt 2>$out/check_$pid.err; echo "exit=$? (tier $tier, full check; native sweep flagged nothing the restricted runs could decide)" >> $out/check_$pid.txt)
-fi
-eif [ -n "$hits" ]; then
-  (cd $V && VERIF_ONLY="$hits" python3 check.py $pid --tier $tier > $out/check_$pid.txt 2>$out/check_$pid.err; echo "exit=$? (tier $tier, restricted to the harnesses the native sweep flagged: $hits)" >> $out/check_$pid.txt)
-  if ! grep -q "^VIOLATION" $out/check_$pid.txt && [ "$tier" = quick ]; then
-    # the flagged harnesses may belong to the thorough tier only (larger bounds, slow ones)
-    (cd $V && VERIF_ONLY="$hits" python3 check.py $pid --tier thorough > $out/check_${pid}_thorough.txt 2>$out/check_${pid}_thorough.err; echo "exit=$? (tier thorough, restricted to the harnesses the native sweep flagged: $hits)" >> $out/check_${pid}_thorough.txt)
-    if grep -q "^VIOLATION" $out/check_${pid}_thorough.txt; then cp $out/check_${pid}_thorough.txt $out/check_$pid.txt; fi
-  fi
-fi
-if [ -z "$hits" ] || { ! grep -q "^VIOLATION" $out/check_$pid.txt && grep -q "no obligation was generated" $out/check_$pid.txt; }; then
-  (cd $V && python3 check.py $pid --tier $tier > $out/check_$pid.txt 2>$out/check_$pid.err; echo "exit=$? (tier $tier, full check; native sweep flagged nothing the restricted runs could decide)" >> $out/check_$pid.txt)
-fi
-mif [ -n "$hits" ]; then
-  (cd $V && VERIF_ONLY="$hits" python3 check.py $pid --tier $tier > $out/check_$pid.txt 2>$out/check_$pid.err; echo "exit=$? (tier $tier, restricted to the harnesses the native sweep flagged: $hits)" >> $out/check_$pid.txt)
-  if ! grep -q "^VIOLATION" $out/check_$pid.txt && [ "$tier" = quick ]; then
-    # the flagged harnesses may belong to the thorough tier only (larger bounds, slow ones)
-    (cd $V && VERIF_ONLY="$hits" python3 check.py $pid --tier thorough > $out/check_${pid}_thorough.txt 2>$out/check_${pid}_thorough.err; echo "exit=$? (tier thorough, restricted to the harnesses the native sweep flagged: $hits)" >> $out/check_${pid}_thorough.txt)
-    if grep -q "^VIOLATION" $out/check_${pid}_thorough.txt; then cp $out/check_${pid}_thorough.txt $out/check_$pid.txt; fi
-  fi
-fi
-if [ -z "$hits" ] || { ! grep -q "^VIOLATION" $out/check_$pid.txt && grep -q "no obligation was generated" $out/check_$pid.txt; }; then
-  (cd $V && python3 check.py $pid --tier $tier > $out/check_$pid.txt 2>$out/check_$pid.err; echo "exit=$? (tier $tier, full check; native sweep flagged nothing the restricted runs could decide)" >> $out/check_$pid.txt)
-fi
-,if [ -n "$hits" ]; then
-  (cd $V && VERIF_ONLY="$hits" python3 check.py $pid --tier $tier > $out/check_$pid.txt 2>$out/check_$pid.err; echo "exit=$? (tier $tier, restricted to the harnesses the native sweep flagged: $hits)" >> $out/check_$pid.txt)
-  if ! grep -q "^VIOLATION" $out/check_$pid.txt && [ "$tier" = quick ]; then
-    # the flagged harnesses may belong to the thorough tier only (larger bounds, slow ones)
-    (cd $V && VERIF_ONLY="$hits" python3 check.py $pid --tier thorough > $out/check_${pid}_thorough.txt 2>$out/check_${pid}_thorough.err; echo "exit=$? (tier thorough, restricted to the harnesses the native sweep flagged: $hits)" >> $out/check_${pid}_thorough.txt)
-    if grep -q "^VIOLATION" $out/check_${pid}_thorough.txt; then cp $out/check_${pid}_thorough.txt $out/check_$pid.txt; fi
-  fi
-fi
-if [ -z "$hits" ] || { ! grep -q "^VIOLATION" $out/check_$pid.txt && grep -q "no obligation was generated" $out/check_$pid.txt; }; then
-  (cd $V && python3 check.py $pid --tier $tier > $out/check_$pid.txt 2>$out/check_$pid.err; echo "exit=$? (tier $tier, full check; native sweep flagged nothing the restricted runs could decide)" >> $out/check_$pid.txt)
-fi
- if [ -n "$hits" ]; then
-  (cd $V && VERIF_ONLY="$hits" python3 check.py $pid --tier $tier > $out/check_$pid.txt 2>$out/check_$pid.err; echo "exit=$? (tier $tier, restricted to the harnesses the native sweep flagged: $hits)" >> $out/check_$pid.txt)
-  if ! grep -q "^VIOLATION" $out/check_$pid.txt && [ "$tier" = quick ]; then
-    # the flagged harnesses may belong to the thorough tier only (larger bounds, slow ones)
-    (cd $V && VERIF_ONLY="$hits" python3 check.py $pid --tier thorough > $out/check_${pid}_thorough.txt 2>$out/check_${pid}_thorough.err; echo "exit=$? (tier thorough, restricted to the harnesses the native sweep flagged: $hits)" >> $out/check_${pid}_thorough.txt)
-    if grep -q "^VIOLATION" $out/check_${pid}_thorough.txt; then cp $out/check_${pid}_thorough.txt $out/check_$pid.txt; fi
-  fi
-fi
-if [ -z "$hits" ] || { ! grep -q "^VIOLATION" $out/check_$pid.txt && grep -q "no obligation was generated" $out/check_$pid.txt; }; then
-  (cd $V && python3 check.py $pid --tier $tier > $out/check_$pid.txt 2>$out/check_$pid.err; echo "exit=$? (tier $tier, full check; native sweep flagged nothing the restricted runs could decide)" >> $out/check_$pid.txt)
-fi
-sif [ -n "$hits" ]; then
-  (cd $V && VERIF_ONLY="$hits" python3 check.py $pid --tier $tier > $out/check_$pid.txt 2>$out/check_$pid.err; echo "exit=$? (tier $tier, restricted to the harnesses the native sweep flagged: $hits)" >> $out/check_$pid.txt)
-  if ! grep -q "^VIOLATION" $out/check_$pid.txt && [ "$tier" = quick ]; then
-    # the flagged harnesses may belong to the thorough tier only (larger bounds, slow ones)
-    (cd $V && VERIF_ONLY="$hits" python3 check.py $pid --tier thorough > $out/check_${pid}_thorough.txt 2>$out/check_${pid}_thorough.err; echo "exit=$? (tier thorough, restricted to the harnesses the native sweep flagged: $hits)" >> $out/check_${pid}_thorough.txt)
-    if grep -q "^VIOLATION" $out/check_${pid}_thorough.txt; then cp $out/check_${pid}_thorough.txt $out/check_$pid.txt; fi
-  fi
-fi
-if [ -z "$hits" ] || { ! grep -q "^VIOLATION" $out/check_$pid.txt && grep -q "no obligation was generated" $out/check_$pid.txt; }; then
-  (cd $V && python3 check.py $pid --tier $tier > $out/check_$pid.txt 2>$out/check_$pid.err; echo "exit=$? (tier $tier, full check; native sweep flagged nothing the restricted runs could decide)" >> $out/check_$pid.txt)
-fi
-oif [ -n "$hits" ]; then
-  (cd $V && VERIF_ONLY="$hits" python3 check.py $pid --tier $tier > $out/check_$pid.txt 2>$out/check_$pid.err; echo "exit=$? (tier $tier, restricted to the harnesses the native sweep flagged: $hits)" >> $out/check_$pid.txt)
-  if ! grep -q "^VIOLATION" $out/check_$pid.txt && [ "$tier" = quick ]; then
-    # the flagged harnesses may belong to the thorough tier only (larger bounds, slow ones)
-    (cd $V && VERIF_ONLY="$hits" python3 check.py $pid --tier thorough > $out/check_${pid}_thorough.txt 2>$out/check_${pid}_thorough.err; echo "exit=$? (tier thorough, restricted to the harnesses the native sweep flagged: $hits)" >> $out/check_${pid}_thorough.txt)
-    if grep -q "^VIOLATION" $out/check_${pid}_thorough.txt; then cp $out/check_${pid}_thorough.txt $out/check_$pid.txt; fi
-  fi
-fi
-if [ -z "$hits" ] || { ! grep -q "^VIOLATION" $out/check_$pid.txt && grep -q "no obligation was generated" $out/check_$pid.txt; }; then
-  (cd $V && python3 check.py $pid --tier $tier > $out/check_$pid.txt 2>$out/check_$pid.err; echo "exit=$? (tier $tier, full check; native sweep flagged nothing the restricted runs could decide)" >> $out/check_$pid.txt)
-fi
- if [ -n "$hits" ]; then
-  (cd $V && VERIF_ONLY="$hits" python3 check.py $pid --tier $tier > $out/check_$pid.txt 2>$out/check_$pid.err; echo "exit=$? (tier $tier, restricted to the harnesses the native sweep flagged: $hits)" >> $out/check_$pid.txt)
-  if ! grep -q "^VIOLATION" $out/check_$pid.txt && [ "$tier" = quick ]; then
-    # the flagged harnesses may belong to the thorough tier only (larger bounds, slow ones)
-    (cd $V && VERIF_ONLY="$hits" python3 check.py $pid --tier thorough > $out/check_${pid}_thorough.txt 2>$out/check_${pid}_thorough.err; echo "exit=$? (tier thorough, restricted to the harnesses the native sweep flagged: $hits)" >> $out/check_${pid}_thorough.txt)
-    if grep -q "^VIOLATION" $out/check_${pid}_thorough.txt; then cp $out/check_${pid}_thorough.txt $out/check_$pid.txt; fi
-  fi
-fi
-if [ -z "$hits" ] || { ! grep -q "^VIOLATION" $out/check_$pid.txt && grep -q "no obligation was generated" $out/check_$pid.txt; }; then
-  (cd $V && python3 check.py $pid --tier $tier > $out/check_$pid.txt 2>$out/check_$pid.err; echo "exit=$? (tier $tier, full check; native sweep flagged nothing the restricted runs could decide)" >> $out/check_$pid.txt)
-fi
-aif [ -n "$hits" ]; then
-  (cd $V && VERIF_ONLY="$hits" python3 check.py $pid --tier $tier > $out/check_$pid.txt 2>$out/check_$pid.err; echo "exit=$? (tier $tier, restricted to the harnesses the native sweep flagged: $hits)" >> $out/check_$pid.txt)
-  if ! grep -q "^VIOLATION" $out/check_$pid.txt && [ "$tier" = quick ]; then
-    # the flagged harnesses may belong to the thorough tier only (larger bounds, slow ones)
-    (cd $V && VERIF_ONLY="$hits" python3 check.py $pid --tier thorough > $out/check_${pid}_thorough.txt 2>$out/check_${pid}_thorough.err; echo "exit=$? (tier thorough, restricted to the harnesses the native sweep flagged: $hits)" >> $out/check_${pid}_thorough.txt)
-    if grep -q "^VIOLATION" $out/check_${pid}_thorough.txt; then cp $out/check_${pid}_thorough.txt $out/check_$pid.txt; fi
-  fi
-fi
-if [ -z "$hits" ] || { ! grep -q "^VIOLATION" $out/check_$pid.txt && grep -q "no obligation was generated" $out/check_$pid.txt; }; then
-  (cd $V && python3 check.py $pid --tier $tier > $out/check_$pid.txt 2>$out/check_$pid.err; echo "exit=$? (tier $tier, full check; native sweep flagged nothing the restricted runs could decide)" >> $out/check_$pid.txt)
-fi
- if [ -n "$hits" ]; then
-  (cd $V && VERIF_ONLY="$hits" python3 check.py $pid --tier $tier > $out/check_$pid.txt 2>$out/check_$pid.err; echo "exit=$? (tier $tier, restricted to the harnesses the native sweep flagged: $hits)" >> $out/check_$pid.txt)
-  if ! grep -q "^VIOLATION" $out/check_$pid.txt && [ "$tier" = quick ]; then
-    # the flagged harnesses may belong to the thorough tier only (larger bounds, slow ones)
-    (cd $V && VERIF_ONLY="$hits" python3 check.py $pid --tier thorough > $out/check_${pid}_thorough.txt 2>$out/check_${pid}_thorough.err; echo "exit=$? (tier thorough, restricted to the harnesses the native sweep flagged: $hits)" >> $out/check_${pid}_thorough.txt)
-    if grep -q "^VIOLATION" $out/check_${pid}_thorough.txt; then cp $out/check_${pid}_thorough.txt $out/check_$pid.txt; fi
-  fi
-fi
-if [ -z "$hits" ] || { ! grep -q "^VIOLATION" $out/check_$pid.txt && grep -q "no obligation was generated" $out/check_$pid.txt; }; then
-  (cd $V && python3 check.py $pid --tier $tier > $out/check_$pid.txt 2>$out/check_$pid.err; echo "exit=$? (tier $tier, full check; native sweep flagged nothing the restricted runs could decide)" >> $out/check_$pid.txt)
-fi
-Vif [ -n "$hits" ]; then
-  (cd $V && VERIF_ONLY="$hits" python3 check.py $pid --tier $tier > $out/check_$pid.txt 2>$out/check_$pid.err; echo "exit=$? (tier $tier, restricted to the harnesses the native sweep flagged: $hits)" >> $out/check_$pid.txt)
-  if ! grep -q "^VIOLATION" $out/check_$pid.txt && [ "$tier" = quick ]; then
-    # the flagged harnesses may belong to the thorough tier only (larger bounds, slow ones)
-    (cd $V && VERIF_ONLY="$hits" python3 check.py $pid --tier thorough > $out/check_${pid}_thorough.txt 2>$out/check_${pid}_thorough.err; echo "exit=$? (tier thorough, restricted to the harnesses the native sweep flagged: $hits)" >> $out/check_${pid}_thorough.txt)
-    if grep -q "^VIOLATION" $out/check_${pid}_thorough.txt; then cp $out/check_${pid}_thorough.txt $out/check_$pid.txt; fi
-  fi
-fi
-if [ -z "$hits" ] || { ! grep -q "^VIOLATION" $out/check_$pid.txt && grep -q "no obligation was generated" $out/check_$pid.txt; }; then
-  (cd $V && python3 check.py $pid --tier $tier > $out/check_$pid.txt 2>$out/check_$pid.err; echo "exit=$? (tier $tier, full check; native sweep flagged nothing the restricted runs could decide)" >> $out/check_$pid.txt)
-fi
-Iif [ -n "$hits" ]; then
-  (cd $V && VERIF_ONLY="$hits" python3 check.py $pid --tier $tier > $out/check_$pid.txt 2>$out/check_$pid.err; echo "exit=$? (tier $tier, restricted to the harnesses the native sweep flagged: $hits)" >> $out/check_$pid.txt)
-  if ! grep -q "^VIOLATION" $out/check_$pid.txt && [ "$tier" = quick ]; then
-    # the flagged harnesses may belong to the thorough tier only (larger bounds, slow ones)
-    (cd $V && VERIF_ONLY="$hits" python3 check.py $pid --tier thorough > $out/check_${pid}_thorough.txt 2>$out/check_${pid}_thorough.err; echo "exit=$? (tier thorough, restricted to the harnesses the native sweep flagged: $hits)" >> $out/check_${pid}_thorough.txt)
-    if grep -q "^VIOLATION" $out/check_${pid}_thorough.txt; then cp $out/check_${pid}_thorough.txt $out/check_$pid.txt; fi
-  fi
-fi
-if [ -z "$hits" ] || { ! grep -q "^VIOLATION" $out/check_$pid.txt && grep -q "no obligation was generated" $out/check_$pid.txt; }; then
-  (cd $V && python3 check.py $pid --tier $tier > $out/check_$pid.txt 2>$out/check_$pid.err; echo "exit=$? (tier $tier, full check; native sweep flagged nothing the restricted runs could decide)" >> $out/check_$pid.txt)
-fi
-Oif [ -n "$hits" ]; then
-  (cd $V && VERIF_ONLY="$hits" python3 check.py $pid --tier $tier > $out/check_$pid.txt 2>$out/check_$pid.err; echo "exit=$? (tier $tier, restricted to the harnesses the native sweep flagged: $hits)" >> $out/check_$pid.txt)
-  if ! grep -q "^VIOLATION" $out/check_$pid.txt && [ "$tier" = quick ]; then
-    # the flagged harnesses may belong to the thorough tier only (larger bounds, slow ones)
-    (cd $V && VERIF_ONLY="$hits" python3 check.py $pid --tier thorough > $out/check_${pid}_thorough.txt 2>$out/check_${pid}_thorough.err; echo "exit=$? (tier thorough, restricted to the harnesses the native sweep flagged: $hits)" >> $out/check_${pid}_thorough.txt)
-    if grep -q "^VIOLATION" $out/check_${pid}_thorough.txt; then cp $out/check_${pid}_thorough.txt $out/check_$pid.txt; fi
-  fi
-fi
-if [ -z "$hits" ] || { ! grep -q "^VIOLATION" $out/check_$pid.txt && grep -q "no obligation was generated" $out/check_$pid.txt; }; then
-  (cd $V && python3 check.py $pid --tier $tier > $out/check_$pid.txt 2>$out/check_$pid.err; echo "exit=$? (tier $tier, full check; native sweep flagged nothing the restricted runs could decide)" >> $out/check_$pid.txt)
-fi
-Lif [ -n "$hits" ]; then
-  (cd $V && VERIF_ONLY="$hits" python3 check.py $pid --tier $tier > $out/check_$pid.txt 2>$out/check_$pid.err; echo "exit=$? (tier $tier, restricted to the harnesses the native sweep flagged: $hits)" >> $out/check_$pid.txt)
-  if ! grep -q "^VIOLATION" $out/check_$pid.txt && [ "$tier" = quick ]; then
-    # the flagged harnesses may belong to the thorough tier only (larger bounds, slow ones)
-    (cd $V && VERIF_ONLY="$hits" python3 check.py $pid --tier thorough > $out/check_${pid}_thorough.txt 2>$out/check_${pid}_thorough.err; echo "exit=$? (tier thorough, restricted to the harnesses the native sweep flagged: $hits)" >> $out/check_${pid}_thorough.txt)
-    if grep -q "^VIOLATION" $out/check_${pid}_thorough.txt; then cp $out/check_${pid}_thorough.txt $out/check_$pid.txt; fi
-  fi
-fi
-if [ -z "$hits" ] || { ! grep -q "^VIOLATION" $out/check_$pid.txt && grep -q "no obligation was generated" $out/check_$pid.txt; }; then
-  (cd $V && python3 check.py $pid --tier $tier > $out/check_$pid.txt 2>$out/check_$pid.err; echo "exit=$? (tier $tier, full check; native sweep flagged nothing the restricted runs could decide)" >> $out/check_$pid.txt)
-fi
-Aif [ -n "$hits" ]; then
-  (cd $V && VERIF_ONLY="$hits" python3 check.py $pid --tier $tier > $out/check_$pid.txt 2>$out/check_$pid.err; echo "exit=$? (tier $tier, restricted to the harnesses the native sweep flagged: $hits)" >> $out/check_$pid.txt)
-  if ! grep -q "^VIOLATION" $out/check_$pid.txt && [ "$tier" = quick ]; then
-    # the flagged harnesses may belong to the thorough tier only (larger bounds, slow ones)
-    (cd $V && VERIF_ONLY="$hits" python3 check.py $pid --tier thorough > $out/check_${pid}_thorough.txt 2>$out/check_${pid}_thorough.err; echo "exit=$? (tier thorough, restricted to the harnesses the native sweep flagged: $hits)" >> $out/check_${pid}_thorough.txt)
-    if grep -q "^VIOLATION" $out/check_${pid}_thorough.txt; then cp $out/check_${pid}_thorough.txt $out/check_$pid.txt; fi
-  fi
-fi
-if [ -z "$hits" ] || { ! grep -q "^VIOLATION" $out/check_$pid.txt && grep -q "no obligation was generated" $out/check_$pid.txt; }; then
-  (cd $V && python3 check.py $pid --tier $tier > $out/check_$pid.txt 2>$out/check_$pid.err; echo "exit=$? (tier $tier, full check; native sweep flagged nothing the restricted runs could decide)" >> $out/check_$pid.txt)
-fi
-Tif [ -n "$hits" ]; then
-  (cd $V && VERIF_ONLY="$hits" python3 check.py $pid --tier $tier > $out/check_$pid.txt 2>$out/check_$pid.err; echo "exit=$? (tier $tier, restricted to the harnesses the native sweep flagged: $hits)" >> $out/check_$pid.txt)
-  if ! grep -q "^VIOLATION" $out/check_$pid.txt && [ "$tier" = quick ]; then
-    # the flagged harnesses may belong to the thorough tier only (larger bounds, slow ones)
-    (cd $V && VERIF_ONLY="$hits" python3 check.py $pid --tier thorough > $out/check_${pid}_thorough.txt 2>$out/check_${pid}_thorough.err; echo "exit=$? (tier thorough, restricted to the harnesses the native sweep flagged: $hits)" >> $out/check_${pid}_thorough.txt)
-    if grep -q "^VIOLATION" $out/check_${pid}_thorough.txt; then cp $out/check_${pid}_thorough.txt $out/check_$pid.txt; fi
-  fi
-fi
-if [ -z "$hits" ] || { ! grep -q "^VIOLATION" $out/check_$pid.txt && grep -q "no obligation was generated" $out/check_$pid.txt; }; then
-  (cd $V && python3 check.py $pid --tier $tier > $out/check_$pid.txt 2>$out/check_$pid.err; echo "exit=$? (tier $tier, full check; native sweep flagged nothing the restricted runs could decide)" >> $out/check_$pid.txt)
-fi
-Iif [ -n "$hits" ]; then
-  (cd $V && VERIF_ONLY="$hits" python3 check.py $pid --tier $tier > $out/check_$pid.txt 2>$out/check_$pid.err; echo "exit=$? (tier $tier, restricted to the harnesses the native sweep flagged: $hits)" >> $out/check_$pid.txt)
-  if ! grep -q "^VIOLATION" $out/check_$pid.txt && [ "$tier" = quick ]; then
-    # the flagged harnesses may belong to the thorough tier only (larger bounds, slow ones)
-    (cd $V && VERIF_ONLY="$hits" python3 check.py $pid --tier thorough > $out/check_${pid}_thorough.txt 2>$out/check_${pid}_thorough.err; echo "exit=$? (tier thorough, restricted to the harnesses the native sweep flagged: $hits)" >> $out/check_${pid}_thorough.txt)
-    if grep -q "^VIOLATION" $out/check_${pid}_thorough.txt; then cp $out/check_${pid}_thorough.txt $out/check_$pid.txt; fi
-  fi
-fi
-if [ -z "$hits" ] || { ! grep -q "^VIOLATION" $out/check_$pid.txt && grep -q "no obligation was generated" $out/check_$pid.txt; }; then
-  (cd $V && python3 check.py $pid --tier $tier > $out/check_$pid.txt 2>$out/check_$pid.err; echo "exit=$? (tier $tier, full check; native sweep flagged nothing the restricted runs could decide)" >> $out/check_$pid.txt)
-fi
-Oif [ -n "$hits" ]; then
-  (cd $V && VERIF_ONLY="$hits" python3 check.py $pid --tier $tier > $out/check_$pid.txt 2>$out/check_$pid.err; echo "exit=$? (tier $tier, restricted to the harnesses the native sweep flagged: $hits)" >> $out/check_$pid.txt)
-  if ! grep -q "^VIOLATION" $out/check_$pid.txt && [ "$tier" = quick ]; then
-    # the flagged harnesses may belong to the thorough tier only (larger bounds, slow ones)
-    (cd $V && VERIF_ONLY="$hits" python3 check.py $pid --tier thorough > $out/check_${pid}_thorough.txt 2>$out/check_${pid}_thorough.err; echo "exit=$? (tier thorough, restricted to the harnesses the native sweep flagged: $hits)" >> $out/check_${pid}_thorough.txt)
-    if grep -q "^VIOLATION" $out/check_${pid}_thorough.txt; then cp $out/check_${pid}_thorough.txt $out/check_$pid.txt; fi
-  fi
-fi
-if [ -z "$hits" ] || { ! grep -q "^VIOLATION" $out/check_$pid.txt && grep -q "no obligation was generated" $out/check_$pid.txt; }; then
-  (cd $V && python3 check.py $pid --tier $tier > $out/check_$pid.txt 2>$out/check_$pid.err; echo "exit=$? (tier $tier, full check; native sweep flagged nothing the restricted runs could decide)" >> $out/check_$pid.txt)
-fi
-Nif [ -n "$hits" ]; then
-  (cd $V && VERIF_ONLY="$hits" python3 check.py $pid --tier $tier > $out/check_$pid.txt 2>$out/check_$pid.err; echo "exit=$? (tier $tier, restricted to the harnesses the native sweep flagged: $hits)" >> $out/check_$pid.txt)
-  if ! grep -q "^VIOLATION" $out/check_$pid.txt && [ "$tier" = quick ]; then
-    # the flagged harnesses may belong to the thorough tier only (larger bounds, slow ones)
-    (cd $V && VERIF_ONLY="$hits" python3 check.py $pid --tier thorough > $out/check_${pid}_thorough.txt 2>$out/check_${pid}_thorough.err; echo "exit=$? (tier thorough, restricted to the harnesses the native sweep flagged: $hits)" >> $out/check_${pid}_thorough.txt)
-    if grep -q "^VIOLATION" $out/check_${pid}_thorough.txt; then cp $out/check_${pid}_thorough.txt $out/check_$pid.txt; fi
-  fi
-fi
-if [ -z "$hits" ] || { ! grep -q "^VIOLATION" $out/check_$pid.txt && grep -q "no obligation was generated" $out/check_$pid.txt; }; then
-  (cd $V && python3 check.py $pid --tier $tier > $out/check_$pid.txt 2>$out/check_$pid.err; echo "exit=$? (tier $tier, full check; native sweep flagged nothing the restricted runs could decide)" >> $out/check_$pid.txt)
-fi
- if [ -n "$hits" ]; then
-  (cd $V && VERIF_ONLY="$hits" python3 check.py $pid --tier $tier > $out/check_$pid.txt 2>$out/check_$pid.err; echo "exit=$? (tier $tier, restricted to the harnesses the native sweep flagged: $hits)" >> $out/check_$pid.txt)
-  if ! grep -q "^VIOLATION" $out/check_$pid.txt && [ "$tier" = quick ]; then
-    # the flagged harnesses may belong to the thorough tier only (larger bounds, slow ones)
-    (cd $V && VERIF_ONLY="$hits" python3 check.py $pid --tier thorough > $out/check_${pid}_thorough.txt 2>$out/check_${pid}_thorough.err; echo "exit=$? (tier thorough, restricted to the harnesses the native sweep flagged: $hits)" >> $out/check_${pid}_thorough.txt)
-    if grep -q "^VIOLATION" $out/check_${pid}_thorough.txt; then cp $out/check_${pid}_thorough.txt $out/check_$pid.txt; fi
-  fi
-fi
-if [ -z "$hits" ] || { ! grep -q "^VIOLATION" $out/check_$pid.txt && grep -q "no obligation was generated" $out/check_$pid.txt; }; then
-  (cd $V && python3 check.py $pid --tier $tier > $out/check_$pid.txt 2>$out/check_$pid.err; echo "exit=$? (tier $tier, full check; native sweep flagged nothing the restricted runs could decide)" >> $out/check_$pid.txt)
-fi
-hif [ -n "$hits" ]; then
-  (cd $V && VERIF_ONLY="$hits" python3 check.py $pid --tier $tier > $out/check_$pid.txt 2>$out/check_$pid.err; echo "exit=$? (tier $tier, restricted to the harnesses the native sweep flagged: $hits)" >> $out/check_$pid.txt)
-  if ! grep -q "^VIOLATION" $out/check_$pid.txt && [ "$tier" = quick ]; then
-    # the flagged harnesses may belong to the thorough tier only (larger bounds, slow ones)
-    (cd $V && VERIF_ONLY="$hits" python3 check.py $pid --tier thorough > $out/check_${pid}_thorough.txt 2>$out/check_${pid}_thorough.err; echo "exit=$? (tier thorough, restricted to the harnesses the native sweep flagged: $hits)" >> $out/check_${pid}_thorough.txt)
-    if grep -q "^VIOLATION" $out/check_${pid}_thorough.txt; then cp $out/check_${pid}_thorough.txt $out/check_$pid.txt; fi
-  fi
-fi
-if [ -z "$hits" ] || { ! grep -q "^VIOLATION" $out/check_$pid.txt && grep -q "no obligation was generated" $out/check_$pid.txt; }; then
-  (cd $V && python3 check.py $pid --tier $tier > $out/check_$pid.txt 2>$out/check_$pid.err; echo "exit=$? (tier $tier, full check; native sweep flagged nothing the restricted runs could decide)" >> $out/check_$pid.txt)
-fi
-eif [ -n "$hits" ]; then
-  (cd $V && VERIF_ONLY="$hits" python3 check.py $pid --tier $tier > $out/check_$pid.txt 2>$out/check_$pid.err; echo "exit=$? (tier $tier, restricted to the harnesses the native sweep flagged: $hits)" >> $out/check_$pid.txt)
-  if ! grep -q "^VIOLATION" $out/check_$pid.txt && [ "$tier" = quick ]; then
-    # the flagged harnesses may belong to the thorough tier only (larger bounds, slow ones)
-    (cd $V && VERIF_ONLY="$hits" python3 check.py $pid --tier thorough > $out/check_${pid}_thorough.txt 2>$out/check_${pid}_thorough.err; echo "exit=$? (tier thorough, restricted to the harnesses the native sweep flagged: $hits)" >> $out/check_${pid}_thorough.txt)
-    if grep -q "^VIOLATION" $out/check_${pid}_thorough.txt; then cp $out/check_${pid}_thorough.txt $out/check_$pid.txt; fi
-  fi
-fi
-if [ -z "$hits" ] || { ! grep -q "^VIOLATION" $out/check_$pid.txt && grep -q "no obligation was generated" $out/check_$pid.txt; }; then
-  (cd $V && python3 check.py $pid --tier $tier > $out/check_$pid.txt 2>$out/check_$pid.err; echo "exit=$? (tier $tier, full check; native sweep flagged nothing the restricted runs could decide)" >> $out/check_$pid.txt)
-fi
-rif [ -n "$hits" ]; then
-  (cd $V && VERIF_ONLY="$hits" python3 check.py $pid --tier $tier > $out/check_$pid.txt 2>$out/check_$pid.err; echo "exit=$? (tier $tier, restricted to the harnesses the native sweep flagged: $hits)" >> $out/check_$pid.txt)
-  if ! grep -q "^VIOLATION" $out/check_$pid.txt && [ "$tier" = quick ]; then
-    # the flagged harnesses may belong to the thorough tier only (larger bounds, slow ones)
-    (cd $V && VERIF_ONLY="$hits" python3 check.py $pid --tier thorough > $out/check_${pid}_thorough.txt 2>$out/check_${pid}_thorough.err; echo "exit=$? (tier thorough, restricted to the harnesses the native sweep flagged: $hits)" >> $out/check_${pid}_thorough.txt)
-    if grep -q "^VIOLATION" $out/check_${pid}_thorough.txt; then cp $out/check_${pid}_thorough.txt $out/check_$pid.txt; fi
-  fi
-fi
-if [ -z "$hits" ] || { ! grep -q "^VIOLATION" $out/check_$pid.txt && grep -q "no obligation was generated" $out/check_$pid.txt; }; then
-  (cd $V && python3 check.py $pid --tier $tier > $out/check_$pid.txt 2>$out/check_$pid.err; echo "exit=$? (tier $tier, full check; native sweep flagged nothing the restricted runs could decide)" >> $out/check_$pid.txt)
-fi
-eif [ -n "$hits" ]; then
-  (cd $V && VERIF_ONLY="$hits" python3 check.py $pid --tier $tier > $out/check_$pid.txt 2>$out/check_$pid.err; echo "exit=$? (tier $tier, restricted to the harnesses the native sweep flagged: $hits)" >> $out/check_$pid.txt)
-  if ! grep -q "^VIOLATION" $out/check_$pid.txt && [ "$tier" = quick ]; then
-    # the flagged harnesses may belong to the thorough tier only (larger bounds, slow ones)
-    (cd $V && VERIF_ONLY="$hits" python3 check.py $pid --tier thorough > $out/check_${pid}_thorough.txt 2>$out/check_${pid}_thorough.err; echo "exit=$? (tier thorough, restricted to the harnesses the native sweep flagged: $hits)" >> $out/check_${pid}_thorough.txt)
-    if grep -q "^VIOLATION" $out/check_${pid}_thorough.txt; then cp $out/check_${pid}_thorough.txt $out/check_$pid.txt; fi
-  fi
-fi
-if [ -z "$hits" ] || { ! grep -q "^VIOLATION" $out/check_$pid.txt && grep -q "no obligation was generated" $out/check_$pid.txt; }; then
-  (cd $V && python3 check.py $pid --tier $tier > $out/check_$pid.txt 2>$out/check_$pid.err; echo "exit=$? (tier $tier, full check; native sweep flagged nothing the restricted runs could decide)" >> $out/check_$pid.txt)
-fi
- if [ -n "$hits" ]; then
-  (cd $V && VERIF_ONLY="$hits" python3 check.py $pid --tier $tier > $out/check_$pid.txt 2>$out/check_$pid.err; echo "exit=$? (tier $tier, restricted to the harnesses the native sweep flagged: $hits)" >> $out/check_$pid.txt)
-  if ! grep -q "^VIOLATION" $out/check_$pid.txt && [ "$tier" = quick ]; then
-    # the flagged harnesses may belong to the thorough tier only (larger bounds, slow ones)
-    (cd $V && VERIF_ONLY="$hits" python3 check.py $pid --tier thorough > $out/check_${pid}_thorough.txt 2>$out/check_${pid}_thorough.err; echo "exit=$? (tier thorough, restricted to the harnesses the native sweep flagged: $hits)" >> $out/check_${pid}_thorough.txt)
-    if grep -q "^VIOLATION" $out/check_${pid}_thorough.txt; then cp $out/check_${pid}_thorough.txt $out/check_$pid.txt; fi
-  fi
-fi
-if [ -z "$hits" ] || { ! grep -q "^VIOLATION" $out/check_$pid.txt && grep -q "no obligation was generated" $out/check_$pid.txt; }; then
-  (cd $V && python3 check.py $pid --tier $tier > $out/check_$pid.txt 2>$out/check_$pid.err; echo "exit=$? (tier $tier, full check; native sweep flagged nothing the restricted runs could decide)" >> $out/check_$pid.txt)
-fi
-iif [ -n "$hits" ]; then
-  (cd $V && VERIF_ONLY="$hits" python3 check.py $pid --tier $tier > $out/check_$pid.txt 2>$out/check_$pid.err; echo "exit=$? (tier $tier, restricted to the harnesses the native sweep flagged: $hits)" >> $out/check_$pid.txt)
-  if ! grep -q "^VIOLATION" $out/check_$pid.txt && [ "$tier" = quick ]; then
-    # the flagged harnesses may belong to the thorough tier only (larger bounds, slow ones)
-    (cd $V && VERIF_ONLY="$hits" python3 check.py $pid --tier thorough > $out/check_${pid}_thorough.txt 2>$out/check_${pid}_thorough.err; echo "exit=$? (tier thorough, restricted to the harnesses the native sweep flagged: $hits)" >> $out/check_${pid}_thorough.txt)
-    if grep -q "^VIOLATION" $out/check_${pid}_thorough.txt; then cp $out/check_${pid}_thorough.txt $out/check_$pid.txt; fi
-  fi
-fi
-if [ -z "$hits" ] || { ! grep -q "^VIOLATION" $out/check_$pid.txt && grep -q "no obligation was generated" $out/check_$pid.txt; }; then
-  (cd $V && python3 check.py $pid --tier $tier > $out/check_$pid.txt 2>$out/check_$pid.err; echo "exit=$? (tier $tier, full check; native sweep flagged nothing the restricted runs could decide)" >> $out/check_$pid.txt)
-fi
-sif [ -n "$hits" ]; then
-  (cd $V && VERIF_ONLY="$hits" python3 check.py $pid --tier $tier > $out/check_$pid.txt 2>$out/check_$pid.err; echo "exit=$? (tier $tier, restricted to the harnesses the native sweep flagged: $hits)" >> $out/check_$pid.txt)
-  if ! grep -q "^VIOLATION" $out/check_$pid.txt && [ "$tier" = quick ]; then
-    # the flagged harnesses may belong to the thorough tier only (larger bounds, slow ones)
-    (cd $V && VERIF_ONLY="$hits" python3 check.py $pid --tier thorough > $out/check_${pid}_thorough.txt 2>$out/check_${pid}_thorough.err; echo "exit=$? (tier thorough, restricted to the harnesses the native sweep flagged: $hits)" >> $out/check_${pid}_thorough.txt)
-    if grep -q "^VIOLATION" $out/check_${pid}_thorough.txt; then cp $out/check_${pid}_thorough.txt $out/check_$pid.txt; fi
-  fi
-fi
-if [ -z "$hits" ] || { ! grep -q "^VIOLATION" $out/check_$pid.txt && grep -q "no obligation was generated" $out/check_$pid.txt; }; then
-  (cd $V && python3 check.py $pid --tier $tier > $out/check_$pid.txt 2>$out/check_$pid.err; echo "exit=$? (tier $tier, full check; native sweep flagged nothing the restricted runs could decide)" >> $out/check_$pid.txt)
-fi
- if [ -n "$hits" ]; then
-  (cd $V && VERIF_ONLY="$hits" python3 check.py $pid --tier $tier > $out/check_$pid.txt 2>$out/check_$pid.err; echo "exit=$? (tier $tier, restricted to the harnesses the native sweep flagged: $hits)" >> $out/check_$pid.txt)
-  if ! grep -q "^VIOLATION" $out/check_$pid.txt && [ "$tier" = quick ]; then
-    # the flagged harnesses may belong to the thorough tier only (larger bounds, slow ones)
-    (cd $V && VERIF_ONLY="$hits" python3 check.py $pid --tier thorough > $out/check_${pid}_thorough.txt 2>$out/check_${pid}_thorough.err; echo "exit=$? (tier thorough, restricted to the harnesses the native sweep flagged: $hits)" >> $out/check_${pid}_thorough.txt)
-    if grep -q "^VIOLATION" $out/check_${pid}_thorough.txt; then cp $out/check_${pid}_thorough.txt $out/check_$pid.txt; fi
-  fi
-fi
-if [ -z "$hits" ] || { ! grep -q "^VIOLATION" $out/check_$pid.txt && grep -q "no obligation was generated" $out/check_$pid.txt; }; then
-  (cd $V && python3 check.py $pid --tier $tier > $out/check_$pid.txt 2>$out/check_$pid.err; echo "exit=$? (tier $tier, full check; native sweep flagged nothing the restricted runs could decide)" >> $out/check_$pid.txt)
-fi
-aif [ -n "$hits" ]; then
-  (cd $V && VERIF_ONLY="$hits" python3 check.py $pid --tier $tier > $out/check_$pid.txt 2>$out/check_$pid.err; echo "exit=$? (tier $tier, restricted to the harnesses the native sweep flagged: $hits)" >> $out/check_$pid.txt)
-  if ! grep -q "^VIOLATION" $out/check_$pid.txt && [ "$tier" = quick ]; then
-    # the flagged harnesses may belong to the thorough tier only (larger bounds, slow ones)
-    (cd $V && VERIF_ONLY="$hits" python3 check.py $pid --tier thorough > $out/check_${pid}_thorough.txt 2>$out/check_${pid}_thorough.err; echo "exit=$? (tier thorough, restricted to the harnesses the native sweep flagged: $hits)" >> $out/check_${pid}_thorough.txt)
-    if grep -q "^VIOLATION" $out/check_${pid}_thorough.txt; then cp $out/check_${pid}_thorough.txt $out/check_$pid.txt; fi
-  fi
-fi
-if [ -z "$hits" ] || { ! grep -q "^VIOLATION" $out/check_$pid.txt && grep -q "no obligation was generated" $out/check_$pid.txt; }; then
-  (cd $V && python3 check.py $pid --tier $tier > $out/check_$pid.txt 2>$out/check_$pid.err; echo "exit=$? (tier $tier, full check; native sweep flagged nothing the restricted runs could decide)" >> $out/check_$pid.txt)
-fi
- if [ -n "$hits" ]; then
-  (cd $V && VERIF_ONLY="$hits" python3 check.py $pid --tier $tier > $out/check_$pid.txt 2>$out/check_$pid.err; echo "exit=$? (tier $tier, restricted to the harnesses the native sweep flagged: $hits)" >> $out/check_$pid.txt)
-  if ! grep -q "^VIOLATION" $out/check_$pid.txt && [ "$tier" = quick ]; then
-    # the flagged harnesses may belong to the thorough tier only (larger bounds, slow ones)
-    (cd $V && VERIF_ONLY="$hits" python3 check.py $pid --tier thorough > $out/check_${pid}_thorough.txt 2>$out/check_${pid}_thorough.err; echo "exit=$? (tier thorough, restricted to the harnesses the native sweep flagged: $hits)" >> $out/check_${pid}_thorough.txt)
-    if grep -q "^VIOLATION" $out/check_${pid}_thorough.txt; then cp $out/check_${pid}_thorough.txt $out/check_$pid.txt; fi
-  fi
-fi
-if [ -z "$hits" ] || { ! grep -q "^VIOLATION" $out/check_$pid.txt && grep -q "no obligation was generated" $out/check_$pid.txt; }; then
-  (cd $V && python3 check.py $pid --tier $tier > $out/check_$pid.txt 2>$out/check_$pid.err; echo "exit=$? (tier $tier, full check; native sweep flagged nothing the restricted runs could decide)" >> $out/check_$pid.txt)
-fi
-Vif [ -n "$hits" ]; then
-  (cd $V && VERIF_ONLY="$hits" python3 check.py $pid --tier $tier > $out/check_$pid.txt 2>$out/check_$pid.err; echo "exit=$? (tier $tier, restricted to the harnesses the native sweep flagged: $hits)" >> $out/check_$pid.txt)
-  if ! grep -q "^VIOLATION" $out/check_$pid.txt && [ "$tier" = quick ]; then
-    # the flagged harnesses may belong to the thorough tier only (larger bounds, slow ones)
-    (cd $V && VERIF_ONLY="$hits" python3 check.py $pid --tier thorough > $out/check_${pid}_thorough.txt 2>$out/check_${pid}_thorough.err; echo "exit=$? (tier thorough, restricted to the harnesses the native sweep flagged: $hits)" >> $out/check_${pid}_thorough.txt)
-    if grep -q "^VIOLATION" $out/check_${pid}_thorough.txt; then cp $out/check_${pid}_thorough.txt $out/check_$pid.txt; fi
-  fi
-fi
-if [ -z "$hits" ] || { ! grep -q "^VIOLATION" $out/check_$pid.txt && grep -q "no obligation was generated" $out/check_$pid.txt; }; then
-  (cd $V && python3 check.py $pid --tier $tier > $out/check_$pid.txt 2>$out/check_$pid.err; echo "exit=$? (tier $tier, full check; native sweep flagged nothing the restricted runs could decide)" >> $out/check_$pid.txt)
-fi
-Iif [ -n "$hits" ]; then
-  (cd $V && VERIF_ONLY="$hits" python3 check.py $pid --tier $tier > $out/check_$pid.txt 2>$out/check_$pid.err; echo "exit=$? (tier $tier, restricted to the harnesses the native sweep flagged: $hits)" >> $out/check_$pid.txt)
-  if ! grep -q "^VIOLATION" $out/check_$pid.txt && [ "$tier" = quick ]; then
-    # the flagged harnesses may belong to the thorough tier only (larger bounds, slow ones)
-    (cd $V && VERIF_ONLY="$hits" python3 check.py $pid --tier thorough > $out/check_${pid}_thorough.txt 2>$out/check_${pid}_thorough.err; echo "exit=$? (tier thorough, restricted to the harnesses the native sweep flagged: $hits)" >> $out/check_${pid}_thorough.txt)
-    if grep -q "^VIOLATION" $out/check_${pid}_thorough.txt; then cp $out/check_${pid}_thorough.txt $out/check_$pid.txt; fi
-  fi
-fi
-if [ -z "$hits" ] || { ! grep -q "^VIOLATION" $out/check_$pid.txt && grep -q "no obligation was generated" $out/check_$pid.txt; }; then
-  (cd $V && python3 check.py $pid --tier $tier > $out/check_$pid.txt 2>$out/check_$pid.err; echo "exit=$? (tier $tier, full check; native sweep flagged nothing the restricted runs could decide)" >> $out/check_$pid.txt)
-fi
-Oif [ -n "$hits" ]; then
-  (cd $V && VERIF_ONLY="$hits" python3 check.py $pid --tier $tier > $out/check_$pid.txt 2>$out/check_$pid.err; echo "exit=$? (tier $tier, restricted to the harnesses the native sweep flagged: $hits)" >> $out/check_$pid.txt)
-  if ! grep -q "^VIOLATION" $out/check_$pid.txt && [ "$tier" = quick ]; then
-    # the flagged harnesses may belong to the thorough tier only (larger bounds, slow ones)
-    (cd $V && VERIF_ONLY="$hits" python3 check.py $pid --tier thorough > $out/check_${pid}_thorough.txt 2>$out/check_${pid}_thorough.err; echo "exit=$? (tier thorough, restricted to the harnesses the native sweep flagged: $hits)" >> $out/check_${pid}_thorough.txt)
-    if grep -q "^VIOLATION" $out/check_${pid}_thorough.txt; then cp $out/check_${pid}_thorough.txt $out/check_$pid.txt; fi
-  fi
-fi
-if [ -z "$hits" ] || { ! grep -q "^VIOLATION" $out/check_$pid.txt && grep -q "no obligation was generated" $out/check_$pid.txt; }; then
-  (cd $V && python3 check.py $pid --tier $tier > $out/check_$pid.txt 2>$out/check_$pid.err; echo "exit=$? (tier $tier, full check; native sweep flagged nothing the restricted runs could decide)" >> $out/check_$pid.txt)
-fi
-Lif [ -n "$hits" ]; then
-  (cd $V && VERIF_ONLY="$hits" python3 check.py $pid --tier $tier > $out/check_$pid.txt 2>$out/check_$pid.err; echo "exit=$? (tier $tier, restricted to the harnesses the native sweep flagged: $hits)" >> $out/check_$pid.txt)
-  if ! grep -q "^VIOLATION" $out/check_$pid.txt && [ "$tier" = quick ]; then
-    # the flagged harnesses may belong to the thorough tier only (larger bounds, slow ones)
-    (cd $V && VERIF_ONLY="$hits" python3 check.py $pid --tier thorough > $out/check_${pid}_thorough.txt 2>$out/check_${pid}_thorough.err; echo "exit=$? (tier thorough, restricted to the harnesses the native sweep flagged: $hits)" >> $out/check_${pid}_thorough.txt)
-    if grep -q "^VIOLATION" $out/check_${pid}_thorough.txt; then cp $out/check_${pid}_thorough.txt $out/check_$pid.txt; fi
-  fi
-fi
-if [ -z "$hits" ] || { ! grep -q "^VIOLATION" $out/check_$pid.txt && grep -q "no obligation was generated" $out/check_$pid.txt; }; then
-  (cd $V && python3 check.py $pid --tier $tier > $out/check_$pid.txt 2>$out/check_$pid.err; echo "exit=$? (tier $tier, full check; native sweep flagged nothing the restricted runs could decide)" >> $out/check_$pid.txt)
-fi
-Aif [ -n "$hits" ]; then
-  (cd $V && VERIF_ONLY="$hits" python3 check.py $pid --tier $tier > $out/check_$pid.txt 2>$out/check_$pid.err; echo "exit=$? (tier $tier, restricted to the harnesses the native sweep flagged: $hits)" >> $out/check_$pid.txt)
-  if ! grep -q "^VIOLATION" $out/check_$pid.txt && [ "$tier" = quick ]; then
-    # the flagged harnesses may belong to the thorough tier only (larger bounds, slow ones)
-    (cd $V && VERIF_ONLY="$hits" python3 check.py $pid --tier thorough > $out/check_${pid}_thorough.txt 2>$out/check_${pid}_thorough.err; echo "exit=$? (tier thorough, restricted to the harnesses the native sweep flagged: $hits)" >> $out/check_${pid}_thorough.txt)
-    if grep -q "^VIOLATION" $out/check_${pid}_thorough.txt; then cp $out/check_${pid}_thorough.txt $out/check_$pid.txt; fi
-  fi
-fi
-if [ -z "$hits" ] || { ! grep -q "^VIOLATION" $out/check_$pid.txt && grep -q "no obligation was generated" $out/check_$pid.txt; }; then
-  (cd $V && python3 check.py $pid --tier $tier > $out/check_$pid.txt 2>$out/check_$pid.err; echo "exit=$? (tier $tier, full check; native sweep flagged nothing the restricted runs could decide)" >> $out/check_$pid.txt)
-fi
-Tif [ -n "$hits" ]; then
-  (cd $V && VERIF_ONLY="$hits" python3 check.py $pid --tier $tier > $out/check_$pid.txt 2>$out/check_$pid.err; echo "exit=$? (tier $tier, restricted to the harnesses the native sweep flagged: $hits)" >> $out/check_$pid.txt)
-  if ! grep -q "^VIOLATION" $out/check_$pid.txt && [ "$tier" = quick ]; then
-    # the flagged harnesses may belong to the thorough tier only (larger bounds, slow ones)
-    (cd $V && VERIF_ONLY="$hits" python3 check.py $pid --tier thorough > $out/check_${pid}_thorough.txt 2>$out/check_${pid}_thorough.err; echo "exit=$? (tier thorough, restricted to the harnesses the native sweep flagged: $hits)" >> $out/check_${pid}_thorough.txt)
-    if grep -q "^VIOLATION" $out/check_${pid}_thorough.txt; then cp $out/check_${pid}_thorough.txt $out/check_$pid.txt; fi
-  fi
-fi
-if [ -z "$hits" ] || { ! grep -q "^VIOLATION" $out/check_$pid.txt && grep -q "no obligation was generated" $out/check_$pid.txt; }; then
-  (cd $V && python3 check.py $pid --tier $tier > $out/check_$pid.txt 2>$out/check_$pid.err; echo "exit=$? (tier $tier, full check; native sweep flagged nothing the restricted runs could decide)" >> $out/check_$pid.txt)
-fi
-Iif [ -n "$hits" ]; then
-  (cd $V && VERIF_ONLY="$hits" python3 check.py $pid --tier $tier > $out/check_$pid.txt 2>$out/check_$pid.err; echo "exit=$? (tier $tier, restricted to the harnesses the native sweep flagged: $hits)" >> $out/check_$pid.txt)
-  if ! grep -q "^VIOLATION" $out/check_$pid.txt && [ "$tier" = quick ]; then
-    # the flagged harnesses may belong to the thorough tier only (larger bounds, slow ones)
-    (cd $V && VERIF_ONLY="$hits" python3 check.py $pid --tier thorough > $out/check_${pid}_thorough.txt 2>$out/check_${pid}_thorough.err; echo "exit=$? (tier thorough, restricted to the harnesses the native sweep flagged: $hits)" >> $out/check_${pid}_thorough.txt)
-    if grep -q "^VIOLATION" $out/check_${pid}_thorough.txt; then cp $out/check_${pid}_thorough.txt $out/check_$pid.txt; fi
-  fi
-fi
-if [ -z "$hits" ] || { ! grep -q "^VIOLATION" $out/check_$pid.txt && grep -q "no obligation was generated" $out/check_$pid.txt; }; then
-  (cd $V && python3 check.py $pid --tier $tier > $out/check_$pid.txt 2>$out/check_$pid.err; echo "exit=$? (tier $tier, full check; native sweep flagged nothing the restricted runs could decide)" >> $out/check_$pid.txt)
-fi
-Oif [ -n "$hits" ]; then
-  (cd $V && VERIF_ONLY="$hits" python3 check.py $pid --tier $tier > $out/check_$pid.txt 2>$out/check_$pid.err; echo "exit=$? (tier $tier, restricted to the harnesses the native sweep flagged: $hits)" >> $out/check_$pid.txt)
-  if ! grep -q "^VIOLATION" $out/check_$pid.txt && [ "$tier" = quick ]; then
-    # the flagged harnesses may belong to the thorough tier only (larger bounds, slow ones)
-    (cd $V && VERIF_ONLY="$hits" python3 check.py $pid --tier thorough > $out/check_${pid}_thorough.txt 2>$out/check_${pid}_thorough.err; echo "exit=$? (tier thorough, restricted to the harnesses the native sweep flagged: $hits)" >> $out/check_${pid}_thorough.txt)
-    if grep -q "^VIOLATION" $out/check_${pid}_thorough.txt; then cp $out/check_${pid}_thorough.txt $out/check_$pid.txt; fi
-  fi
-fi
-if [ -z "$hits" ] || { ! grep -q "^VIOLATION" $out/check_$pid.txt && grep -q "no obligation was generated" $out/check_$pid.txt; }; then
-  (cd $V && python3 check.py $pid --tier $tier > $out/check_$pid.txt 2>$out/check_$pid.err; echo "exit=$? (tier $tier, full check; native sweep flagged nothing the restricted runs could decide)" >> $out/check_$pid.txt)
-fi
-Nif [ -n "$hits" ]; then
-  (cd $V && VERIF_ONLY="$hits" python3 check.py $pid --tier $tier > $out/check_$pid.txt 2>$out/check_$pid.err; echo "exit=$? (tier $tier, restricted to the harnesses the native sweep flagged: $hits)" >> $out/check_$pid.txt)
-  if ! grep -q "^VIOLATION" $out/check_$pid.txt && [ "$tier" = quick ]; then
-    # the flagged harnesses may belong to the thorough tier only (larger bounds, slow ones)
-    (cd $V && VERIF_ONLY="$hits" python3 check.py $pid --tier thorough > $out/check_${pid}_thorough.txt 2>$out/check_${pid}_thorough.err; echo "exit=$? (tier thorough, restricted to the harnesses the native sweep flagged: $hits)" >> $out/check_${pid}_thorough.txt)
-    if grep -q "^VIOLATION" $out/check_${pid}_thorough.txt; then cp $out/check_${pid}_thorough.txt $out/check_$pid.txt; fi
-  fi
-fi
-if [ -z "$hits" ] || { ! grep -q "^VIOLATION" $out/check_$pid.txt && grep -q "no obligation was generated" $out/check_$pid.txt; }; then
-  (cd $V && python3 check.py $pid --tier $tier > $out/check_$pid.txt 2>$out/check_$pid.err; echo "exit=$? (tier $tier, full check; native sweep flagged nothing the restricted runs could decide)" >> $out/check_$pid.txt)
-fi
- if [ -n "$hits" ]; then
-  (cd $V && VERIF_ONLY="$hits" python3 check.py $pid --tier $tier > $out/check_$pid.txt 2>$out/check_$pid.err; echo "exit=$? (tier $tier, restricted to the harnesses the native sweep flagged: $hits)" >> $out/check_$pid.txt)
-  if ! grep -q "^VIOLATION" $out/check_$pid.txt && [ "$tier" = quick ]; then
-    # the flagged harnesses may belong to the thorough tier only (larger bounds, slow ones)
-    (cd $V && VERIF_ONLY="$hits" python3 check.py $pid --tier thorough > $out/check_${pid}_thorough.txt 2>$out/check_${pid}_thorough.err; echo "exit=$? (tier thorough, restricted to the harnesses the native sweep flagged: $hits)" >> $out/check_${pid}_thorough.txt)
-    if grep -q "^VIOLATION" $out/check_${pid}_thorough.txt; then cp $out/check_${pid}_thorough.txt $out/check_$pid.txt; fi
-  fi
-fi
-if [ -z "$hits" ] || { ! grep -q "^VIOLATION" $out/check_$pid.txt && grep -q "no obligation was generated" $out/check_$pid.txt; }; then
-  (cd $V && python3 check.py $pid --tier $tier > $out/check_$pid.txt 2>$out/check_$pid.err; echo "exit=$? (tier $tier, full check; native sweep flagged nothing the restricted runs could decide)" >> $out/check_$pid.txt)
-fi
-tif [ -n "$hits" ]; then
-  (cd $V && VERIF_ONLY="$hits" python3 check.py $pid --tier $tier > $out/check_$pid.txt 2>$out/check_$pid.err; echo "exit=$? (tier $tier, restricted to the harnesses the native sweep flagged: $hits)" >> $out/check_$pid.txt)
-  if ! grep -q "^VIOLATION" $out/check_$pid.txt && [ "$tier" = quick ]; then
-    # the flagged harnesses may belong to the thorough tier only (larger bounds, slow ones)
-    (cd $V && VERIF_ONLY="$hits" python3 check.py $pid --tier thorough > $out/check_${pid}_thorough.txt 2>$out/check_${pid}_thorough.err; echo "exit=$? (tier thorough, restricted to the harnesses the native sweep flagged: $hits)" >> $out/check_${pid}_thorough.txt)
-    if grep -q "^VIOLATION" $out/check_${pid}_thorough.txt; then cp $out/check_${pid}_thorough.txt $out/check_$pid.txt; fi
-  fi
-fi
-if [ -z "$hits" ] || { ! grep -q "^VIOLATION" $out/check_$pid.txt && grep -q "no obligation was generated" $out/check_$pid.txt; }; then
-  (cd $V && python3 check.py $pid --tier $tier > $out/check_$pid.txt 2>$out/check_$pid.err; echo "exit=$? (tier $tier, full check; native sweep flagged nothing the restricted runs could decide)" >> $out/check_$pid.txt)
-fi
-hif [ -n "$hits" ]; then
-  (cd $V && VERIF_ONLY="$hits" python3 check.py $pid --tier $tier > $out/check_$pid.txt 2>$out/check_$pid.err; echo "exit=$? (tier $tier, restricted to the harnesses the native sweep flagged: $hits)" >> $out/check_$pid.txt)
-  if ! grep -q "^VIOLATION" $out/check_$pid.txt && [ "$tier" = quick ]; then
-    # the flagged harnesses may belong to the thorough tier only (larger bounds, slow ones)
-    (cd $V && VERIF_ONLY="$hits" python3 check.py $pid --tier thorough > $out/check_${pid}_thorough.txt 2>$out/check_${pid}_thorough.err; echo "exit=$? (tier thorough, restricted to the harnesses the native sweep flagged: $hits)" >> $out/check_${pid}_thorough.txt)
-    if grep -q "^VIOLATION" $out/check_${pid}_thorough.txt; then cp $out/check_${pid}_thorough.txt $out/check_$pid.txt; fi
-  fi
-fi
-if [ -z "$hits" ] || { ! grep -q "^VIOLATION" $out/check_$pid.txt && grep -q "no obligation was generated" $out/check_$pid.txt; }; then
-  (cd $V && python3 check.py $pid --tier $tier > $out/check_$pid.txt 2>$out/check_$pid.err; echo "exit=$? (tier $tier, full check; native sweep flagged nothing the restricted runs could decide)" >> $out/check_$pid.txt)
-fi
-eif [ -n "$hits" ]; then
-  (cd $V && VERIF_ONLY="$hits" python3 check.py $pid --tier $tier > $out/check_$pid.txt 2>$out/check_$pid.err; echo "exit=$? (tier $tier, restricted to the harnesses the native sweep flagged: $hits)" >> $out/check_$pid.txt)
-  if ! grep -q "^VIOLATION" $out/check_$pid.txt && [ "$tier" = quick ]; then
-    # the flagged harnesses may belong to the thorough tier only (larger bounds, slow ones)
-    (cd $V && VERIF_ONLY="$hits" python3 check.py $pid --tier thorough > $out/check_${pid}_thorough.txt 2>$out/check_${pid}_thorough.err; echo "exit=$? (tier thorough, restricted to the harnesses the native sweep flagged: $hits)" >> $out/check_${pid}_thorough.txt)
-    if grep -q "^VIOLATION" $out/check_${pid}_thorough.txt; then cp $out/check_${pid}_thorough.txt $out/check_$pid.txt; fi
-  fi
-fi
-if [ -z "$hits" ] || { ! grep -q "^VIOLATION" $out/check_$pid.txt && grep -q "no obligation was generated" $out/check_$pid.txt; }; then
-  (cd $V && python3 check.py $pid --tier $tier > $out/check_$pid.txt 2>$out/check_$pid.err; echo "exit=$? (tier $tier, full check; native sweep flagged nothing the restricted runs could decide)" >> $out/check_$pid.txt)
-fi
-rif [ -n "$hits" ]; then
-  (cd $V && VERIF_ONLY="$hits" python3 check.py $pid --tier $tier > $out/check_$pid.txt 2>$out/check_$pid.err; echo "exit=$? (tier $tier, restricted to the harnesses the native sweep flagged: $hits)" >> $out/check_$pid.txt)
-  if ! grep -q "^VIOLATION" $out/check_$pid.txt && [ "$tier" = quick ]; then
-    # the flagged harnesses may belong to the thorough tier only (larger bounds, slow ones)
-    (cd $V && VERIF_ONLY="$hits" python3 check.py $pid --tier thorough > $out/check_${pid}_thorough.txt 2>$out/check_${pid}_thorough.err; echo "exit=$? (tier thorough, restricted to the harnesses the native sweep flagged: $hits)" >> $out/check_${pid}_thorough.txt)
-    if grep -q "^VIOLATION" $out/check_${pid}_thorough.txt; then cp $out/check_${pid}_thorough.txt $out/check_$pid.txt; fi
-  fi
-fi
-if [ -z "$hits" ] || { ! grep -q "^VIOLATION" $out/check_$pid.txt && grep -q "no obligation was generated" $out/check_$pid.txt; }; then
-  (cd $V && python3 check.py $pid --tier $tier > $out/check_$pid.txt 2>$out/check_$pid.err; echo "exit=$? (tier $tier, full check; native sweep flagged nothing the restricted runs could decide)" >> $out/check_$pid.txt)
-fi
-eif [ -n "$hits" ]; then
-  (cd $V && VERIF_ONLY="$hits" python3 check.py $pid --tier $tier > $out/check_$pid.txt 2>$out/check_$pid.err; echo "exit=$? (tier $tier, restricted to the harnesses the native sweep flagged: $hits)" >> $out/check_$pid.txt)
-  if ! grep -q "^VIOLATION" $out/check_$pid.txt && [ "$tier" = quick ]; then
-    # the flagged harnesses may belong to the thorough tier only (larger bounds, slow ones)
-    (cd $V && VERIF_ONLY="$hits" python3 check.py $pid --tier thorough > $out/check_${pid}_thorough.txt 2>$out/check_${pid}_thorough.err; echo "exit=$? (tier thorough, restricted to the harnesses the native sweep flagged: $hits)" >> $out/check_${pid}_thorough.txt)
-    if grep -q "^VIOLATION" $out/check_${pid}_thorough.txt; then cp $out/check_${pid}_thorough.txt $out/check_$pid.txt; fi
-  fi
-fi
-if [ -z "$hits" ] || { ! grep -q "^VIOLATION" $out/check_$pid.txt && grep -q "no obligation was generated" $out/check_$pid.txt; }; then
-  (cd $V && python3 check.py $pid --tier $tier > $out/check_$pid.txt 2>$out/check_$pid.err; echo "exit=$? (tier $tier, full check; native sweep flagged nothing the restricted runs could decide)" >> $out/check_$pid.txt)
-fi
-)if [ -n "$hits" ]; then
-  (cd $V && VERIF_ONLY="$hits" python3 check.py $pid --tier $tier > $out/check_$pid.txt 2>$out/check_$pid.err; echo "exit=$? (tier $tier, restricted to the harnesses the native sweep flagged: $hits)" >> $out/check_$pid.txt)
-  if ! grep -q "^VIOLATION" $out/check_$pid.txt && [ "$tier" = quick ]; then
-    # the flagged harnesses may belong to the thorough tier only (larger bounds, slow ones)
-    (cd $V && VERIF_ONLY="$hits" python3 check.py $pid --tier thorough > $out/check_${pid}_thorough.txt 2>$out/check_${pid}_thorough.err; echo "exit=$? (tier thorough, restricted to the harnesses the native sweep flagged: $hits)" >> $out/check_${pid}_thorough.txt)
-    if grep -q "^VIOLATION" $out/check_${pid}_thorough.txt; then cp $out/check_${pid}_thorough.txt $out/check_$pid.txt; fi
-  fi
-fi
-if [ -z "$hits" ] || { ! grep -q "^VIOLATION" $out/check_$pid.txt && grep -q "no obligation was generated" $out/check_$pid.txt; }; then
-  (cd $V && python3 check.py $pid --tier $tier > $out/check_$pid.txt 2>$out/check_$pid.err; echo "exit=$? (tier $tier, full check; native sweep flagged nothing the restricted runs could decide)" >> $out/check_$pid.txt)
-fi
-,if [ -n "$hits" ]; then
-  (cd $V && VERIF_ONLY="$hits" python3 check.py $pid --tier $tier > $out/check_$pid.txt 2>$out/check_$pid.err; echo "exit=$? (tier $tier, restricted to the harnesses the native sweep flagged: $hits)" >> $out/check_$pid.txt)
-  if ! grep -q "^VIOLATION" $out/check_$pid.txt && [ "$tier" = quick ]; then
-    # the flagged harnesses may belong to the thorough tier only (larger bounds, slow ones)
-    (cd $V && VERIF_ONLY="$hits" python3 check.py $pid --tier thorough > $out/check_${pid}_thorough.txt 2>$out/check_${pid}_thorough.err; echo "exit=$? (tier thorough, restricted to the harnesses the native sweep flagged: $hits)" >> $out/check_${pid}_thorough.txt)
-    if grep -q "^VIOLATION" $out/check_${pid}_thorough.txt; then cp $out/check_${pid}_thorough.txt $out/check_$pid.txt; fi
-  fi
-fi
-if [ -z "$hits" ] || { ! grep -q "^VIOLATION" $out/check_$pid.txt && grep -q "no obligation was generated" $out/check_$pid.txt; }; then
-  (cd $V && python3 check.py $pid --tier $tier > $out/check_$pid.txt 2>$out/check_$pid.err; echo "exit=$? (tier $tier, full check; native sweep flagged nothing the restricted runs could decide)" >> $out/check_$pid.txt)
-fi
- if [ -n "$hits" ]; then
-  (cd $V && VERIF_ONLY="$hits" python3 check.py $pid --tier $tier > $out/check_$pid.txt 2>$out/check_$pid.err; echo "exit=$? (tier $tier, restricted to the harnesses the native sweep flagged: $hits)" >> $out/check_$pid.txt)
-  if ! grep -q "^VIOLATION" $out/check_$pid.txt && [ "$tier" = quick ]; then
-    # the flagged harnesses may belong to the thorough tier only (larger bounds, slow ones)
-    (cd $V && VERIF_ONLY="$hits" python3 check.py $pid --tier thorough > $out/check_${pid}_thorough.txt 2>$out/check_${pid}_thorough.err; echo "exit=$? (tier thorough, restricted to the harnesses the native sweep flagged: $hits)" >> $out/check_${pid}_thorough.txt)
-    if grep -q "^VIOLATION" $out/check_${pid}_thorough.txt; then cp $out/check_${pid}_thorough.txt $out/check_$pid.txt; fi
-  fi
-fi
-if [ -z "$hits" ] || { ! grep -q "^VIOLATION" $out/check_$pid.txt && grep -q "no obligation was generated" $out/check_$pid.txt; }; then
-  (cd $V && python3 check.py $pid --tier $tier > $out/check_$pid.txt 2>$out/check_$pid.err; echo "exit=$? (tier $tier, full check; native sweep flagged nothing the restricted runs could decide)" >> $out/check_$pid.txt)
-fi
-tif [ -n "$hits" ]; then
-  (cd $V && VERIF_ONLY="$hits" python3 check.py $pid --tier $tier > $out/check_$pid.txt 2>$out/check_$pid.err; echo "exit=$? (tier $tier, restricted to the harnesses the native sweep flagged: $hits)" >> $out/check_$pid.txt)
-  if ! grep -q "^VIOLATION" $out/check_$pid.txt && [ "$tier" = quick ]; then
-    # the flagged harnesses may belong to the thorough tier only (larger bounds, slow ones)
-    (cd $V && VERIF_ONLY="$hits" python3 check.py $pid --tier thorough > $out/check_${pid}_thorough.txt 2>$out/check_${pid}_thorough.err; echo "exit=$? (tier thorough, restricted to the harnesses the native sweep flagged: $hits)" >> $out/check_${pid}_thorough.txt)
-    if grep -q "^VIOLATION" $out/check_${pid}_thorough.txt; then cp $out/check_${pid}_thorough.txt $out/check_$pid.txt; fi
-  fi
-fi
-if [ -z "$hits" ] || { ! grep -q "^VIOLATION" $out/check_$pid.txt && grep -q "no obligation was generated" $out/check_$pid.txt; }; then
-  (cd $V && python3 check.py $pid --tier $tier > $out/check_$pid.txt 2>$out/check_$pid.err; echo "exit=$? (tier $tier, full check; native sweep flagged nothing the restricted runs could decide)" >> $out/check_$pid.txt)
-fi
-hif [ -n "$hits" ]; then
-  (cd $V && VERIF_ONLY="$hits" python3 check.py $pid --tier $tier > $out/check_$pid.txt 2>$out/check_$pid.err; echo "exit=$? (tier $tier, restricted to the harnesses the native sweep flagged: $hits)" >> $out/check_$pid.txt)
-  if ! grep -q "^VIOLATION" $out/check_$pid.txt && [ "$tier" = quick ]; then
-    # the flagged harnesses may belong to the thorough tier only (larger bounds, slow ones)
-    (cd $V && VERIF_ONLY="$hits" python3 check.py $pid --tier thorough > $out/check_${pid}_thorough.txt 2>$out/check_${pid}_thorough.err; echo "exit=$? (tier thorough, restricted to the harnesses the native sweep flagged: $hits)" >> $out/check_${pid}_thorough.txt)
-    if grep -q "^VIOLATION" $out/check_${pid}_thorough.txt; then cp $out/check_${pid}_thorough.txt $out/check_$pid.txt; fi
-  fi
-fi
-if [ -z "$hits" ] || { ! grep -q "^VIOLATION" $out/check_$pid.txt && grep -q "no obligation was generated" $out/check_$pid.txt; }; then
-  (cd $V && python3 check.py $pid --tier $tier > $out/check_$pid.txt 2>$out/check_$pid.err; echo "exit=$? (tier $tier, full check; native sweep flagged nothing the restricted runs could decide)" >> $out/check_$pid.txt)
-fi
-eif [ -n "$hits" ]; then
-  (cd $V && VERIF_ONLY="$hits" python3 check.py $pid --tier $tier > $out/check_$pid.txt 2>$out/check_$pid.err; echo "exit=$? (tier $tier, restricted to the harnesses the native sweep flagged: $hits)" >> $out/check_$pid.txt)
-  if ! grep -q "^VIOLATION" $out/check_$pid.txt && [ "$tier" = quick ]; then
-    # the flagged harnesses may belong to the thorough tier only (larger bounds, slow ones)
-    (cd $V && VERIF_ONLY="$hits" python3 check.py $pid --tier thorough > $out/check_${pid}_thorough.txt 2>$out/check_${pid}_thorough.err; echo "exit=$? (tier thorough, restricted to the harnesses the native sweep flagged: $hits)" >> $out/check_${pid}_thorough.txt)
-    if grep -q "^VIOLATION" $out/check_${pid}_thorough.txt; then cp $out/check_${pid}_thorough.txt $out/check_$pid.txt; fi
-  fi
-fi
-if [ -z "$hits" ] || { ! grep -q "^VIOLATION" $out/check_$pid.txt && grep -q "no obligation was generated" $out/check_$pid.txt; }; then
-  (cd $V && python3 check.py $pid --tier $tier > $out/check_$pid.txt 2>$out/check_$pid.err; echo "exit=$? (tier $tier, full check; native sweep flagged nothing the restricted runs could decide)" >> $out/check_$pid.txt)
-fi
- if [ -n "$hits" ]; then
-  (cd $V && VERIF_ONLY="$hits" python3 check.py $pid --tier $tier > $out/check_$pid.txt 2>$out/check_$pid.err; echo "exit=$? (tier $tier, restricted to the harnesses the native sweep flagged: $hits)" >> $out/check_$pid.txt)
-  if ! grep -q "^VIOLATION" $out/check_$pid.txt && [ "$tier" = quick ]; then
-    # the flagged harnesses may belong to the thorough tier only (larger bounds, slow ones)
-    (cd $V && VERIF_ONLY="$hits" python3 check.py $pid --tier thorough > $out/check_${pid}_thorough.txt 2>$out/check_${pid}_thorough.err; echo "exit=$? (tier thorough, restricted to the harnesses the native sweep flagged: $hits)" >> $out/check_${pid}_thorough.txt)
-    if grep -q "^VIOLATION" $out/check_${pid}_thorough.txt; then cp $out/check_${pid}_thorough.txt $out/check_$pid.txt; fi
-  fi
-fi
-if [ -z "$hits" ] || { ! grep -q "^VIOLATION" $out/check_$pid.txt && grep -q "no obligation was generated" $out/check_$pid.txt; }; then
-  (cd $V && python3 check.py $pid --tier $tier > $out/check_$pid.txt 2>$out/check_$pid.err; echo "exit=$? (tier $tier, full check; native sweep flagged nothing the restricted runs could decide)" >> $out/check_$pid.txt)
-fi
-fif [ -n "$hits" ]; then
-  (cd $V && VERIF_ONLY="$hits" python3 check.py $pid --tier $tier > $out/check_$pid.txt 2>$out/check_$pid.err; echo "exit=$? (tier $tier, restricted to the harnesses the native sweep flagged: $hits)" >> $out/check_$pid.txt)
-  if ! grep -q "^VIOLATION" $out/check_$pid.txt && [ "$tier" = quick ]; then
-    # the flagged harnesses may belong to the thorough tier only (larger bounds, slow ones)
-    (cd $V && VERIF_ONLY="$hits" python3 check.py $pid --tier thorough > $out/check_${pid}_thorough.txt 2>$out/check_${pid}_thorough.err; echo "exit=$? (tier thorough, restricted to the harnesses the native sweep flagged: $hits)" >> $out/check_${pid}_thorough.txt)
-    if grep -q "^VIOLATION" $out/check_${pid}_thorough.txt; then cp $out/check_${pid}_thorough.txt $out/check_$pid.txt; fi
-  fi
-fi
-if [ -z "$hits" ] || { ! grep -q "^VIOLATION" $out/check_$pid.txt && grep -q "no obligation was generated" $out/check_$pid.txt; }; then
-  (cd $V && python3 check.py $pid --tier $tier > $out/check_$pid.txt 2>$out/check_$pid.err; echo "exit=$? (tier $tier, full check; native sweep flagged nothing the restricted runs could decide)" >> $out/check_$pid.txt)
-fi
-uif [ -n "$hits" ]; then
-  (cd $V && VERIF_ONLY="$hits" python3 check.py $pid --tier $tier > $out/check_$pid.txt 2>$out/check_$pid.err; echo "exit=$? (tier $tier, restricted to the harnesses the native sweep flagged: $hits)" >> $out/check_$pid.txt)
-  if ! grep -q "^VIOLATION" $out/check_$pid.txt && [ "$tier" = quick ]; then
-    # the flagged harnesses may belong to the thorough tier only (larger bounds, slow ones)
-    (cd $V && VERIF_ONLY="$hits" python3 check.py $pid --tier thorough > $out/check_${pid}_thorough.txt 2>$out/check_${pid}_thorough.err; echo "exit=$? (tier thorough, restricted to the harnesses the native sweep flagged: $hits)" >> $out/check_${pid}_thorough.txt)
-    if grep -q "^VIOLATION" $out/check_${pid}_thorough.txt; then cp $out/check_${pid}_thorough.txt $out/check_$pid.txt; fi
-  fi
-fi
-if [ -z "$hits" ] || { ! grep -q "^VIOLATION" $out/check_$pid.txt && grep -q "no obligation was generated" $out/check_$pid.txt; }; then
-  (cd $V && python3 check.py $pid --tier $tier > $out/check_$pid.txt 2>$out/check_$pid.err; echo "exit=$? (tier $tier, full check; native sweep flagged nothing the restricted runs could decide)" >> $out/check_$pid.txt)
-fi
-lif [ -n "$hits" ]; then
-  (cd $V && VERIF_ONLY="$hits" python3 check.py $pid --tier $tier > $out/check_$pid.txt 2>$out/check_$pid.err; echo "exit=$? (tier $tier, restricted to the harnesses the native sweep flagged: $hits)" >> $out/check_$pid.txt)
-  if ! grep -q "^VIOLATION" $out/check_$pid.txt && [ "$tier" = quick ]; then
-    # the flagged harnesses may belong to the thorough tier only (larger bounds, slow ones)
-    (cd $V && VERIF_ONLY="$hits" python3 check.py $pid --tier thorough > $out/check_${pid}_thorough.txt 2>$out/check_${pid}_thorough.err; echo "exit=$? (tier thorough, restricted to the harnesses the native sweep flagged: $hits)" >> $out/check_${pid}_thorough.txt)
-    if grep -q "^VIOLATION" $out/check_${pid}_thorough.txt; then cp $out/check_${pid}_thorough.txt $out/check_$pid.txt; fi
-  fi
-fi
-if [ -z "$hits" ] || { ! grep -q "^VIOLATION" $out/check_$pid.txt && grep -q "no obligation was generated" $out/check_$pid.txt; }; then
-  (cd $V && python3 check.py $pid --tier $tier > $out/check_$pid.txt 2>$out/check_$pid.err; echo "exit=$? (tier $tier, full check; native sweep flagged nothing the restricted runs could decide)" >> $out/check_$pid.txt)
-fi
-lif [ -n "$hits" ]; then
-  (cd $V && VERIF_ONLY="$hits" python3 check.py $pid --tier $tier > $out/check_$pid.txt 2>$out/check_$pid.err; echo "exit=$? (tier $tier, restricted to the harnesses the native sweep flagged: $hits)" >> $out/check_$pid.txt)
-  if ! grep -q "^VIOLATION" $out/check_$pid.txt && [ "$tier" = quick ]; then
-    # the flagged harnesses may belong to the thorough tier only (larger bounds, slow ones)
-    (cd $V && VERIF_ONLY="$hits" python3 check.py $pid --tier thorough > $out/check_${pid}_thorough.txt 2>$out/check_${pid}_thorough.err; echo "exit=$? (tier thorough, restricted to the harnesses the native sweep flagged: $hits)" >> $out/check_${pid}_thorough.txt)
-    if grep -q "^VIOLATION" $out/check_${pid}_thorough.txt; then cp $out/check_${pid}_thorough.txt $out/check_$pid.txt; fi
-  fi
-fi
-if [ -z "$hits" ] || { ! grep -q "^VIOLATION" $out/check_$pid.txt && grep -q "no obligation was generated" $out/check_$pid.txt; }; then
-  (cd $V && python3 check.py $pid --tier $tier > $out/check_$pid.txt 2>$out/check_$pid.err; echo "exit=$? (tier $tier, full check; native sweep flagged nothing the restricted runs could decide)" >> $out/check_$pid.txt)
-fi
- if [ -n "$hits" ]; then
-  (cd $V && VERIF_ONLY="$hits" python3 check.py $pid --tier $tier > $out/check_$pid.txt 2>$out/check_$pid.err; echo "exit=$? (tier $tier, restricted to the harnesses the native sweep flagged: $hits)" >> $out/check_$pid.txt)
-  if ! grep -q "^VIOLATION" $out/check_$pid.txt && [ "$tier" = quick ]; then
-    # the flagged harnesses may belong to the thorough tier only (larger bounds, slow ones)
-    (cd $V && VERIF_ONLY="$hits" python3 check.py $pid --tier thorough > $out/check_${pid}_thorough.txt 2>$out/check_${pid}_thorough.err; echo "exit=$? (tier thorough, restricted to the harnesses the native sweep flagged: $hits)" >> $out/check_${pid}_thorough.txt)
-    if grep -q "^VIOLATION" $out/check_${pid}_thorough.txt; then cp $out/check_${pid}_thorough.txt $out/check_$pid.txt; fi
-  fi
-fi
-if [ -z "$hits" ] || { ! grep -q "^VIOLATION" $out/check_$pid.txt && grep -q "no obligation was generated" $out/check_$pid.txt; }; then
-  (cd $V && python3 check.py $pid --tier $tier > $out/check_$pid.txt 2>$out/check_$pid.err; echo "exit=$? (tier $tier, full check; native sweep flagged nothing the restricted runs could decide)" >> $out/check_$pid.txt)
-fi
-cif [ -n "$hits" ]; then
-  (cd $V && VERIF_ONLY="$hits" python3 check.py $pid --tier $tier > $out/check_$pid.txt 2>$out/check_$pid.err; echo "exit=$? (tier $tier, restricted to the harnesses the native sweep flagged: $hits)" >> $out/check_$pid.txt)
-  if ! grep -q "^VIOLATION" $out/check_$pid.txt && [ "$tier" = quick ]; then
-    # the flagged harnesses may belong to the thorough tier only (larger bounds, slow ones)
-    (cd $V && VERIF_ONLY="$hits" python3 check.py $pid --tier thorough > $out/check_${pid}_thorough.txt 2>$out/check_${pid}_thorough.err; echo "exit=$? (tier thorough, restricted to the harnesses the native sweep flagged: $hits)" >> $out/check_${pid}_thorough.txt)
-    if grep -q "^VIOLATION" $out/check_${pid}_thorough.txt; then cp $out/check_${pid}_thorough.txt $out/check_$pid.txt; fi
-  fi
-fi
-if [ -z "$hits" ] || { ! grep -q "^VIOLATION" $out/check_$pid.txt && grep -q "no obligation was generated" $out/check_$pid.txt; }; then
-  (cd $V && python3 check.py $pid --tier $tier > $out/check_$pid.txt 2>$out/check_$pid.err; echo "exit=$? (tier $tier, full check; native sweep flagged nothing the restricted runs could decide)" >> $out/check_$pid.txt)
-fi
-hif [ -n "$hits" ]; then
-  (cd $V && VERIF_ONLY="$hits" python3 check.py $pid --tier $tier > $out/check_$pid.txt 2>$out/check_$pid.err; echo "exit=$? (tier $tier, restricted to the harnesses the native sweep flagged: $hits)" >> $out/check_$pid.txt)
-  if ! grep -q "^VIOLATION" $out/check_$pid.txt && [ "$tier" = quick ]; then
-    # the flagged harnesses may belong to the thorough tier only (larger bounds, slow ones)
-    (cd $V && VERIF_ONLY="$hits" python3 check.py $pid --tier thorough > $out/check_${pid}_thorough.txt 2>$out/check_${pid}_thorough.err; echo "exit=$? (tier thorough, restricted to the harnesses the native sweep flagged: $hits)" >> $out/check_${pid}_thorough.txt)
-    if grep -q "^VIOLATION" $out/check_${pid}_thorough.txt; then cp $out/check_${pid}_thorough.txt $out/check_$pid.txt; fi
-  fi
-fi
-if [ -z "$hits" ] || { ! grep -q "^VIOLATION" $out/check_$pid.txt && grep -q "no obligation was generated" $out/check_$pid.txt; }; then
-  (cd $V && python3 check.py $pid --tier $tier > $out/check_$pid.txt 2>$out/check_$pid.err; echo "exit=$? (tier $tier, full check; native sweep flagged nothing the restricted runs could decide)" >> $out/check_$pid.txt)
-fi
-eif [ -n "$hits" ]; then
-  (cd $V && VERIF_ONLY="$hits" python3 check.py $pid --tier $tier > $out/check_$pid.txt 2>$out/check_$pid.err; echo "exit=$? (tier $tier, restricted to the harnesses the native sweep flagged: $hits)" >> $out/check_$pid.txt)
-  if ! grep -q "^VIOLATION" $out/check_$pid.txt && [ "$tier" = quick ]; then
-    # the flagged harnesses may belong to the thorough tier only (larger bounds, slow ones)
-    (cd $V && VERIF_ONLY="$hits" python3 check.py $pid --tier thorough > $out/check_${pid}_thorough.txt 2>$out/check_${pid}_thorough.err; echo "exit=$? (tier thorough, restricted to the harnesses the native sweep flagged: $hits)" >> $out/check_${pid}_thorough.txt)
-    if grep -q "^VIOLATION" $out/check_${pid}_thorough.txt; then cp $out/check_${pid}_thorough.txt $out/check_$pid.txt; fi
-  fi
-fi
-if [ -z "$hits" ] || { ! grep -q "^VIOLATION" $out/check_$pid.txt && grep -q "no obligation was generated" $out/check_$pid.txt; }; then
-  (cd $V && python3 check.py $pid --tier $tier > $out/check_$pid.txt 2>$out/check_$pid.err; echo "exit=$? (tier $tier, full check; native sweep flagged nothing the restricted runs could decide)" >> $out/check_$pid.txt)
-fi
-cif [ -n "$hits" ]; then
-  (cd $V && VERIF_ONLY="$hits" python3 check.py $pid --tier $tier > $out/check_$pid.txt 2>$out/check_$pid.err; echo "exit=$? (tier $tier, restricted to the harnesses the native sweep flagged: $hits)" >> $out/check_$pid.txt)
-  if ! grep -q "^VIOLATION" $out/check_$pid.txt && [ "$tier" = quick ]; then
-    # the flagged harnesses may belong to the thorough tier only (larger bounds, slow ones)
-    (cd $V && VERIF_ONLY="$hits" python3 check.py $pid --tier thorough > $out/check_${pid}_thorough.txt 2>$out/check_${pid}_thorough.err; echo "exit=$? (tier thorough, restricted to the harnesses the native sweep flagged: $hits)" >> $out/check_${pid}_thorough.txt)
-    if grep -q "^VIOLATION" $out/check_${pid}_thorough.txt; then cp $out/check_${pid}_thorough.txt $out/check_$pid.txt; fi
-  fi
-fi
-if [ -z "$hits" ] || { ! grep -q "^VIOLATION" $out/check_$pid.txt && grep -q "no obligation was generated" $out/check_$pid.txt; }; then
-  (cd $V && python3 check.py $pid --tier $tier > $out/check_$pid.txt 2>$out/check_$pid.err; echo "exit=$? (tier $tier, full check; native sweep flagged nothing the restricted runs could decide)" >> $out/check_$pid.txt)
-fi
-kif [ -n "$hits" ]; then
-  (cd $V && VERIF_ONLY="$hits" python3 check.py $pid --tier $tier > $out/check_$pid.txt 2>$out/check_$pid.err; echo "exit=$? (tier $tier, restricted to the harnesses the native sweep flagged: $hits)" >> $out/check_$pid.txt)
-  if ! grep -q "^VIOLATION" $out/check_$pid.txt && [ "$tier" = quick ]; then
-    # the flagged harnesses may belong to the thorough tier only (larger bounds, slow ones)
-    (cd $V && VERIF_ONLY="$hits" python3 check.py $pid --tier thorough > $out/check_${pid}_thorough.txt 2>$out/check_${pid}_thorough.err; echo "exit=$? (tier thorough, restricted to the harnesses the native sweep flagged: $hits)" >> $out/check_${pid}_thorough.txt)
-    if grep -q "^VIOLATION" $out/check_${pid}_thorough.txt; then cp $out/check_${pid}_thorough.txt $out/check_$pid.txt; fi
-  fi
-fi
-if [ -z "$hits" ] || { ! grep -q "^VIOLATION" $out/check_$pid.txt && grep -q "no obligation was generated" $out/check_$pid.txt; }; then
-  (cd $V && python3 check.py $pid --tier $tier > $out/check_$pid.txt 2>$out/check_$pid.err; echo "exit=$? (tier $tier, full check; native sweep flagged nothing the restricted runs could decide)" >> $out/check_$pid.txt)
-fi
- if [ -n "$hits" ]; then
-  (cd $V && VERIF_ONLY="$hits" python3 check.py $pid --tier $tier > $out/check_$pid.txt 2>$out/check_$pid.err; echo "exit=$? (tier $tier, restricted to the harnesses the native sweep flagged: $hits)" >> $out/check_$pid.txt)
-  if ! grep -q "^VIOLATION" $out/check_$pid.txt && [ "$tier" = quick ]; then
-    # the flagged harnesses may belong to the thorough tier only (larger bounds, slow ones)
-    (cd $V && VERIF_ONLY="$hits" python3 check.py $pid --tier thorough > $out/check_${pid}_thorough.txt 2>$out/check_${pid}_thorough.err; echo "exit=$? (tier thorough, restricted to the harnesses the native sweep flagged: $hits)" >> $out/check_${pid}_thorough.txt)
-    if grep -q "^VIOLATION" $out/check_${pid}_thorough.txt; then cp $out/check_${pid}_thorough.txt $out/check_$pid.txt; fi
-  fi
-fi
-if [ -z "$hits" ] || { ! grep -q "^VIOLATION" $out/check_$pid.txt && grep -q "no obligation was generated" $out/check_$pid.txt; }; then
-  (cd $V && python3 check.py $pid --tier $tier > $out/check_$pid.txt 2>$out/check_$pid.err; echo "exit=$? (tier $tier, full check; native sweep flagged nothing the restricted runs could decide)" >> $out/check_$pid.txt)
-fi
-oif [ -n "$hits" ]; then
-  (cd $V && VERIF_ONLY="$hits" python3 check.py $pid --tier $tier > $out/check_$pid.txt 2>$out/check_$pid.err; echo "exit=$? (tier $tier, restricted to the harnesses the native sweep flagged: $hits)" >> $out/check_$pid.txt)
-  if ! grep -q "^VIOLATION" $out/check_$pid.txt && [ "$tier" = quick ]; then
-    # the flagged harnesses may belong to the thorough tier only (larger bounds, slow ones)
-    (cd $V && VERIF_ONLY="$hits" python3 check.py $pid --tier thorough > $out/check_${pid}_thorough.txt 2>$out/check_${pid}_thorough.err; echo "exit=$? (tier thorough, restricted to the harnesses the native sweep flagged: $hits)" >> $out/check_${pid}_thorough.txt)
-    if grep -q "^VIOLATION" $out/check_${pid}_thorough.txt; then cp $out/check_${pid}_thorough.txt $out/check_$pid.txt; fi
-  fi
-fi
-if [ -z "$hits" ] || { ! grep -q "^VIOLATION" $out/check_$pid.txt && grep -q "no obligation was generated" $out/check_$pid.txt; }; then
-  (cd $V && python3 check.py $pid --tier $tier > $out/check_$pid.txt 2>$out/check_$pid.err; echo "exit=$? (tier $tier, full check; native sweep flagged nothing the restricted runs could decide)" >> $out/check_$pid.txt)
-fi
-tif [ -n "$hits" ]; then
-  (cd $V && VERIF_ONLY="$hits" python3 check.py $pid --tier $tier > $out/check_$pid.txt 2>$out/check_$pid.err; echo "exit=$? (tier $tier, restricted to the harnesses the native sweep flagged: $hits)" >> $out/check_$pid.txt)
-  if ! grep -q "^VIOLATION" $out/check_$pid.txt && [ "$tier" = quick ]; then
-    # the flagged harnesses may belong to the thorough tier only (larger bounds, slow ones)
-    (cd $V && VERIF_ONLY="$hits" python3 check.py $pid --tier thorough > $out/check_${pid}_thorough.txt 2>$out/check_${pid}_thorough.err; echo "exit=$? (tier thorough, restricted to the harnesses the native sweep flagged: $hits)" >> $out/check_${pid}_thorough.txt)
-    if grep -q "^VIOLATION" $out/check_${pid}_thorough.txt; then cp $out/check_${pid}_thorough.txt $out/check_$pid.txt; fi
-  fi
-fi
-if [ -z "$hits" ] || { ! grep -q "^VIOLATION" $out/check_$pid.txt && grep -q "no obligation was generated" $out/check_$pid.txt; }; then
-  (cd $V && python3 check.py $pid --tier $tier > $out/check_$pid.txt 2>$out/check_$pid.err; echo "exit=$? (tier $tier, full check; native sweep flagged nothing the restricted runs could decide)" >> $out/check_$pid.txt)
-fi
-hif [ -n "$hits" ]; then
-  (cd $V && VERIF_ONLY="$hits" python3 check.py $pid --tier $tier > $out/check_$pid.txt 2>$out/check_$pid.err; echo "exit=$? (tier $tier, restricted to the harnesses the native sweep flagged: $hits)" >> $out/check_$pid.txt)
-  if ! grep -q "^VIOLATION" $out/check_$pid.txt && [ "$tier" = quick ]; then
-    # the flagged harnesses may belong to the thorough tier only (larger bounds, slow ones)
-    (cd $V && VERIF_ONLY="$hits" python3 check.py $pid --tier thorough > $out/check_${pid}_thorough.txt 2>$out/check_${pid}_thorough.err; echo "exit=$? (tier thorough, restricted to the harnesses the native sweep flagged: $hits)" >> $out/check_${pid}_thorough.txt)
-    if grep -q "^VIOLATION" $out/check_${pid}_thorough.txt; then cp $out/check_${pid}_thorough.txt $out/check_$pid.txt; fi
-  fi
-fi
-if [ -z "$hits" ] || { ! grep -q "^VIOLATION" $out/check_$pid.txt && grep -q "no obligation was generated" $out/check_$pid.txt; }; then
-  (cd $V && python3 check.py $pid --tier $tier > $out/check_$pid.txt 2>$out/check_$pid.err; echo "exit=$? (tier $tier, full check; native sweep flagged nothing the restricted runs could decide)" >> $out/check_$pid.txt)
-fi
-eif [ -n "$hits" ]; then
-  (cd $V && VERIF_ONLY="$hits" python3 check.py $pid --tier $tier > $out/check_$pid.txt 2>$out/check_$pid.err; echo "exit=$? (tier $tier, restricted to the harnesses the native sweep flagged: $hits)" >> $out/check_$pid.txt)
-  if ! grep -q "^VIOLATION" $out/check_$pid.txt && [ "$tier" = quick ]; then
-    # the flagged harnesses may belong to the thorough tier only (larger bounds, slow ones)
-    (cd $V && VERIF_ONLY="$hits" python3 check.py $pid --tier thorough > $out/check_${pid}_thorough.txt 2>$out/check_${pid}_thorough.err; echo "exit=$? (tier thorough, restricted to the harnesses the native sweep flagged: $hits)" >> $out/check_${pid}_thorough.txt)
-    if grep -q "^VIOLATION" $out/check_${pid}_thorough.txt; then cp $out/check_${pid}_thorough.txt $out/check_$pid.txt; fi
-  fi
-fi
-if [ -z "$hits" ] || { ! grep -q "^VIOLATION" $out/check_$pid.txt && grep -q "no obligation was generated" $out/check_$pid.txt; }; then
-  (cd $V && python3 check.py $pid --tier $tier > $out/check_$pid.txt 2>$out/check_$pid.err; echo "exit=$? (tier $tier, full check; native sweep flagged nothing the restricted runs could decide)" >> $out/check_$pid.txt)
-fi
-rif [ -n "$hits" ]; then
-  (cd $V && VERIF_ONLY="$hits" python3 check.py $pid --tier $tier > $out/check_$pid.txt 2>$out/check_$pid.err; echo "exit=$? (tier $tier, restricted to the harnesses the native sweep flagged: $hits)" >> $out/check_$pid.txt)
-  if ! grep -q "^VIOLATION" $out/check_$pid.txt && [ "$tier" = quick ]; then
-    # the flagged harnesses may belong to the thorough tier only (larger bounds, slow ones)
-    (cd $V && VERIF_ONLY="$hits" python3 check.py $pid --tier thorough > $out/check_${pid}_thorough.txt 2>$out/check_${pid}_thorough.err; echo "exit=$? (tier thorough, restricted to the harnesses the native sweep flagged: $hits)" >> $out/check_${pid}_thorough.txt)
-    if grep -q "^VIOLATION" $out/check_${pid}_thorough.txt; then cp $out/check_${pid}_thorough.txt $out/check_$pid.txt; fi
-  fi
-fi
-if [ -z "$hits" ] || { ! grep -q "^VIOLATION" $out/check_$pid.txt && grep -q "no obligation was generated" $out/check_$pid.txt; }; then
-  (cd $V && python3 check.py $pid --tier $tier > $out/check_$pid.txt 2>$out/check_$pid.err; echo "exit=$? (tier $tier, full check; native sweep flagged nothing the restricted runs could decide)" >> $out/check_$pid.txt)
-fi
-wif [ -n "$hits" ]; then
-  (cd $V && VERIF_ONLY="$hits" python3 check.py $pid --tier $tier > $out/check_$pid.txt 2>$out/check_$pid.err; echo "exit=$? (tier $tier, restricted to the harnesses the native sweep flagged: $hits)" >> $out/check_$pid.txt)
-  if ! grep -q "^VIOLATION" $out/check_$pid.txt && [ "$tier" = quick ]; then
-    # the flagged harnesses may belong to the thorough tier only (larger bounds, slow ones)
-    (cd $V && VERIF_ONLY="$hits" python3 check.py $pid --tier thorough > $out/check_${pid}_thorough.txt 2>$out/check_${pid}_thorough.err; echo "exit=$? (tier thorough, restricted to the harnesses the native sweep flagged: $hits)" >> $out/check_${pid}_thorough.txt)
-    if grep -q "^VIOLATION" $out/check_${pid}_thorough.txt; then cp $out/check_${pid}_thorough.txt $out/check_$pid.txt; fi
-  fi
-fi
-if [ -z "$hits" ] || { ! grep -q "^VIOLATION" $out/check_$pid.txt && grep -q "no obligation was generated" $out/check_$pid.txt; }; then
-  (cd $V && python3 check.py $pid --tier $tier > $out/check_$pid.txt 2>$out/check_$pid.err; echo "exit=$? (tier $tier, full check; native sweep flagged nothing the restricted runs could decide)" >> $out/check_$pid.txt)
-fi
-iif [ -n "$hits" ]; then
-  (cd $V && VERIF_ONLY="$hits" python3 check.py $pid --tier $tier > $out/check_$pid.txt 2>$out/check_$pid.err; echo "exit=$? (tier $tier, restricted to the harnesses the native sweep flagged: $hits)" >> $out/check_$pid.txt)
-  if ! grep -q "^VIOLATION" $out/check_$pid.txt && [ "$tier" = quick ]; then
-    # the flagged harnesses may belong to the thorough tier only (larger bounds, slow ones)
-    (cd $V && VERIF_ONLY="$hits" python3 check.py $pid --tier thorough > $out/check_${pid}_thorough.txt 2>$out/check_${pid}_thorough.err; echo "exit=$? (tier thorough, restricted to the harnesses the native sweep flagged: $hits)" >> $out/check_${pid}_thorough.txt)
-    if grep -q "^VIOLATION" $out/check_${pid}_thorough.txt; then cp $out/check_${pid}_thorough.txt $out/check_$pid.txt; fi
-  fi
-fi
-if [ -z "$hits" ] || { ! grep -q "^VIOLATION" $out/check_$pid.txt && grep -q "no obligation was generated" $out/check_$pid.txt; }; then
-  (cd $V && python3 check.py $pid --tier $tier > $out/check_$pid.txt 2>$out/check_$pid.err; echo "exit=$? (tier $tier, full check; native sweep flagged nothing the restricted runs could decide)" >> $out/check_$pid.txt)
-fi
-sif [ -n "$hits" ]; then
-  (cd $V && VERIF_ONLY="$hits" python3 check.py $pid --tier $tier > $out/check_$pid.txt 2>$out/check_$pid.err; echo "exit=$? (tier $tier, restricted to the harnesses the native sweep flagged: $hits)" >> $out/check_$pid.txt)
-  if ! grep -q "^VIOLATION" $out/check_$pid.txt && [ "$tier" = quick ]; then
-    # the flagged harnesses may belong to the thorough tier only (larger bounds, slow ones)
-    (cd $V && VERIF_ONLY="$hits" python3 check.py $pid --tier thorough > $out/check_${pid}_thorough.txt 2>$out/check_${pid}_thorough.err; echo "exit=$? (tier thorough, restricted to the harnesses the native sweep flagged: $hits)" >> $out/check_${pid}_thorough.txt)
-    if grep -q "^VIOLATION" $out/check_${pid}_thorough.txt; then cp $out/check_${pid}_thorough.txt $out/check_$pid.txt; fi
-  fi
-fi
-if [ -z "$hits" ] || { ! grep -q "^VIOLATION" $out/check_$pid.txt && grep -q "no obligation was generated" $out/check_$pid.txt; }; then
-  (cd $V && python3 check.py $pid --tier $tier > $out/check_$pid.txt 2>$out/check_$pid.err; echo "exit=$? (tier $tier, full check; native sweep flagged nothing the restricted runs could decide)" >> $out/check_$pid.txt)
-fi
-eif [ -n "$hits" ]; then
-  (cd $V && VERIF_ONLY="$hits" python3 check.py $pid --tier $tier > $out/check_$pid.txt 2>$out/check_$pid.err; echo "exit=$? (tier $tier, restricted to the harnesses the native sweep flagged: $hits)" >> $out/check_$pid.txt)
-  if ! grep -q "^VIOLATION" $out/check_$pid.txt && [ "$tier" = quick ]; then
-    # the flagged harnesses may belong to the thorough tier only (larger bounds, slow ones)
-    (cd $V && VERIF_ONLY="$hits" python3 check.py $pid --tier thorough > $out/check_${pid}_thorough.txt 2>$out/check_${pid}_thorough.err; echo "exit=$? (tier thorough, restricted to the harnesses the native sweep flagged: $hits)" >> $out/check_${pid}_thorough.txt)
-    if grep -q "^VIOLATION" $out/check_${pid}_thorough.txt; then cp $out/check_${pid}_thorough.txt $out/check_$pid.txt; fi
-  fi
-fi
-if [ -z "$hits" ] || { ! grep -q "^VIOLATION" $out/check_$pid.txt && grep -q "no obligation was generated" $out/check_$pid.txt; }; then
-  (cd $V && python3 check.py $pid --tier $tier > $out/check_$pid.txt 2>$out/check_$pid.err; echo "exit=$? (tier $tier, full check; native sweep flagged nothing the restricted runs could decide)" >> $out/check_$pid.txt)
-fi
-.if [ -n "$hits" ]; then
-  (cd $V && VERIF_ONLY="$hits" python3 check.py $pid --tier $tier > $out/check_$pid.txt 2>$out/check_$pid.err; echo "exit=$? (tier $tier, restricted to the harnesses the native sweep flagged: $hits)" >> $out/check_$pid.txt)
-  if ! grep -q "^VIOLATION" $out/check_$pid.txt && [ "$tier" = quick ]; then
-    # the flagged harnesses may belong to the thorough tier only (larger bounds, slow ones)
-    (cd $V && VERIF_ONLY="$hits" python3 check.py $pid --tier thorough > $out/check_${pid}_thorough.txt 2>$out/check_${pid}_thorough.err; echo "exit=$? (tier thorough, restricted to the harnesses the native sweep flagged: $hits)" >> $out/check_${pid}_thorough.txt)
-    if grep -q "^VIOLATION" $out/check_${pid}_thorough.txt; then cp $out/check_${pid}_thorough.txt $out/check_$pid.txt; fi
-  fi
-fi
-if [ -z "$hits" ] || { ! grep -q "^VIOLATION" $out/check_$pid.txt && grep -q "no obligation was generated" $out/check_$pid.txt; }; then
-  (cd $V && python3 check.py $pid --tier $tier > $out/check_$pid.txt 2>$out/check_$pid.err; echo "exit=$? (tier $tier, full check; native sweep flagged nothing the restricted runs could decide)" >> $out/check_$pid.txt)
-fi
-
-if [ -n "$hits" ]; then
-  (cd $V && VERIF_ONLY="$hits" python3 check.py $pid --tier $tier > $out/check_$pid.txt 2>$out/check_$pid.err; echo "exit=$? (tier $tier, restricted to the harnesses the native sweep flagged: $hits)" >> $out/check_$pid.txt)
-  if ! grep -q "^VIOLATION" $out/check_$pid.txt && [ "$tier" = quick ]; then
-    # the flagged harnesses may belong to the thorough tier only (larger bounds, slow ones)
-    (cd $V && VERIF_ONLY="$hits" python3 check.py $pid --tier thorough > $out/check_${pid}_thorough.txt 2>$out/check_${pid}_thorough.err; echo "exit=$? (tier thorough, restricted to the harnesses the native sweep flagged: $hits)" >> $out/check_${pid}_thorough.txt)
-    if grep -q "^VIOLATION" $out/check_${pid}_thorough.txt; then cp $out/check_${pid}_thorough.txt $out/check_$pid.txt; fi
-  fi
-fi
-if [ -z "$hits" ] || { ! grep -q "^VIOLATION" $out/check_$pid.txt && grep -q "no obligation was generated" $out/check_$pid.txt; }; then
-  (cd $V && python3 check.py $pid --tier $tier > $out/check_$pid.txt 2>$out/check_$pid.err; echo "exit=$? (tier $tier, full check; native sweep flagged nothing the restricted runs could decide)" >> $out/check_$pid.txt)
-fi
-Vif [ -n "$hits" ]; then
-  (cd $V && VERIF_ONLY="$hits" python3 check.py $pid --tier $tier > $out/check_$pid.txt 2>$out/check_$pid.err; echo "exit=$? (tier $tier, restricted to the harnesses the native sweep flagged: $hits)" >> $out/check_$pid.txt)
-  if ! grep -q "^VIOLATION" $out/check_$pid.txt && [ "$tier" = quick ]; then
-    # the flagged harnesses may belong to the thorough tier only (larger bounds, slow ones)
-    (cd $V && VERIF_ONLY="$hits" python3 check.py $pid --tier thorough > $out/check_${pid}_thorough.txt 2>$out/check_${pid}_thorough.err; echo "exit=$? (tier thorough, restricted to the harnesses the native sweep flagged: $hits)" >> $out/check_${pid}_thorough.txt)
-    if grep -q "^VIOLATION" $out/check_${pid}_thorough.txt; then cp $out/check_${pid}_thorough.txt $out/check_$pid.txt; fi
-  fi
-fi
-if [ -z "$hits" ] || { ! grep -q "^VIOLATION" $out/check_$pid.txt && grep -q "no obligation was generated" $out/check_$pid.txt; }; then
-  (cd $V && python3 check.py $pid --tier $tier > $out/check_$pid.txt 2>$out/check_$pid.err; echo "exit=$? (tier $tier, full check; native sweep flagged nothing the restricted runs could decide)" >> $out/check_$pid.txt)
-fi
-=if [ -n "$hits" ]; then
-  (cd $V && VERIF_ONLY="$hits" python3 check.py $pid --tier $tier > $out/check_$pid.txt 2>$out/check_$pid.err; echo "exit=$? (tier $tier, restricted to the harnesses the native sweep flagged: $hits)" >> $out/check_$pid.txt)
-  if ! grep -q "^VIOLATION" $out/check_$pid.txt && [ "$tier" = quick ]; then
-    # the flagged harnesses may belong to the thorough tier only (larger bounds, slow ones)
-    (cd $V && VERIF_ONLY="$hits" python3 check.py $pid --tier thorough > $out/check_${pid}_thorough.txt 2>$out/check_${pid}_thorough.err; echo "exit=$? (tier thorough, restricted to the harnesses the native sweep flagged: $hits)" >> $out/check_${pid}_thorough.txt)
-    if grep -q "^VIOLATION" $out/check_${pid}_thorough.txt; then cp $out/check_${pid}_thorough.txt $out/check_$pid.txt; fi
-  fi
-fi
-if [ -z "$hits" ] || { ! grep -q "^VIOLATION" $out/check_$pid.txt && grep -q "no obligation was generated" $out/check_$pid.txt; }; then
-  (cd $V && python3 check.py $pid --tier $tier > $out/check_$pid.txt 2>$out/check_$pid.err; echo "exit=$? (tier $tier, full check; native sweep flagged nothing the restricted runs could decide)" >> $out/check_$pid.txt)
-fi
-$if [ -n "$hits" ]; then
-  (cd $V && VERIF_ONLY="$hits" python3 check.py $pid --tier $tier > $out/check_$pid.txt 2>$out/check_$pid.err; echo "exit=$? (tier $tier, restricted to the harnesses the native sweep flagged: $hits)" >> $out/check_$pid.txt)
-  if ! grep -q "^VIOLATION" $out/check_$pid.txt && [ "$tier" = quick ]; then
-    # the flagged harnesses may belong to the thorough tier only (larger bounds, slow ones)
-    (cd $V && VERIF_ONLY="$hits" python3 check.py $pid --tier thorough > $out/check_${pid}_thorough.txt 2>$out/check_${pid}_thorough.err; echo "exit=$? (tier thorough, restricted to the harnesses the native sweep flagged: $hits)" >> $out/check_${pid}_thorough.txt)
-    if grep -q "^VIOLATION" $out/check_${pid}_thorough.txt; then cp $out/check_${pid}_thorough.txt $out/check_$pid.txt; fi
-  fi
-fi
-if [ -z "$hits" ] || { ! grep -q "^VIOLATION" $out/check_$pid.txt && grep -q "no obligation was generated" $out/check_$pid.txt; }; then
-  (cd $V && python3 check.py $pid --tier $tier > $out/check_$pid.txt 2>$out/check_$pid.err; echo "exit=$? (tier $tier, full check; native sweep flagged nothing the restricted runs could decide)" >> $out/check_$pid.txt)
-fi
-(if [ -n "$hits" ]; then
-  (cd $V && VERIF_ONLY="$hits" python3 check.py $pid --tier $tier > $out/check_$pid.txt 2>$out/check_$pid.err; echo "exit=$? (tier $tier, restricted to the harnesses the native sweep flagged: $hits)" >> $out/check_$pid.txt)
-  if ! grep -q "^VIOLATION" $out/check_$pid.txt && [ "$tier" = quick ]; then
-    # the flagged harnesses may belong to the thorough tier only (larger bounds, slow ones)
-    (cd $V && VERIF_ONLY="$hits" python3 check.py $pid --tier thorough > $out/check_${pid}_thorough.txt 2>$out/check_${pid}_thorough.err; echo "exit=$? (tier thorough, restricted to the harnesses the native sweep flagged: $hits)" >> $out/check_${pid}_thorough.txt)
-    if grep -q "^VIOLATION" $out/check_${pid}_thorough.txt; then cp $out/check_${pid}_thorough.txt $out/check_$pid.txt; fi
-  fi
-fi
-if [ -z "$hits" ] || { ! grep -q "^VIOLATION" $out/check_$pid.txt && grep -q "no obligation was generated" $out/check_$pid.txt; }; then
-  (cd $V && python3 check.py $pid --tier $tier > $out/check_$pid.txt 2>$out/check_$pid.err; echo "exit=$? (tier $tier, full check; native sweep flagged nothing the restricted runs could decide)" >> $out/check_$pid.txt)
-fi
-cif [ -n "$hits" ]; then
-  (cd $V && VERIF_ONLY="$hits" python3 check.py $pid --tier $tier > $out/check_$pid.txt 2>$out/check_$pid.err; echo "exit=$? (tier $tier, restricted to the harnesses the native sweep flagged: $hits)" >> $out/check_$pid.txt)
-  if ! grep -q "^VIOLATION" $out/check_$pid.txt && [ "$tier" = quick ]; then
-    # the flagged harnesses may belong to the thorough tier only (larger bounds, slow ones)
-    (cd $V && VERIF_ONLY="$hits" python3 check.py $pid --tier thorough > $out/check_${pid}_thorough.txt 2>$out/check_${pid}_thorough.err; echo "exit=$? (tier thorough, restricted to the harnesses the native sweep flagged: $hits)" >> $out/check_${pid}_thorough.txt)
-    if grep -q "^VIOLATION" $out/check_${pid}_thorough.txt; then cp $out/check_${pid}_thorough.txt $out/check_$pid.txt; fi
-  fi
-fi
-if [ -z "$hits" ] || { ! grep -q "^VIOLATION" $out/check_$pid.txt && grep -q "no obligation was generated" $out/check_$pid.txt; }; then
-  (cd $V && python3 check.py $pid --tier $tier > $out/check_$pid.txt 2>$out/check_$pid.err; echo "exit=$? (tier $tier, full check; native sweep flagged nothing the restricted runs could decide)" >> $out/check_$pid.txt)
-fi
-dif [ -n "$hits" ]; then
-  (cd $V && VERIF_ONLY="$hits" python3 check.py $pid --tier $tier > $out/check_$pid.txt 2>$out/check_$pid.err; echo "exit=$? (tier $tier, restricted to the harnesses the native sweep flagged: $hits)" >> $out/check_$pid.txt)
-  if ! grep -q "^VIOLATION" $out/check_$pid.txt && [ "$tier" = quick ]; then
-    # the flagged harnesses may belong to the thorough tier only (larger bounds, slow ones)
-    (cd $V && VERIF_ONLY="$hits" python3 check.py $pid --tier thorough > $out/check_${pid}_thorough.txt 2>$out/check_${pid}_thorough.err; echo "exit=$? (tier thorough, restricted to the harnesses the native sweep flagged: $hits)" >> $out/check_${pid}_thorough.txt)
-    if grep -q "^VIOLATION" $out/check_${pid}_thorough.txt; then cp $out/check_${pid}_thorough.txt $out/check_$pid.txt; fi
-  fi
-fi
-if [ -z "$hits" ] || { ! grep -q "^VIOLATION" $out/check_$pid.txt && grep -q "no obligation was generated" $out/check_$pid.txt; }; then
-  (cd $V && python3 check.py $pid --tier $tier > $out/check_$pid.txt 2>$out/check_$pid.err; echo "exit=$? (tier $tier, full check; native sweep flagged nothing the restricted runs could decide)" >> $out/check_$pid.txt)
-fi
- if [ -n "$hits" ]; then
-  (cd $V && VERIF_ONLY="$hits" python3 check.py $pid --tier $tier > $out/check_$pid.txt 2>$out/check_$pid.err; echo "exit=$? (tier $tier, restricted to the harnesses the native sweep flagged: $hits)" >> $out/check_$pid.txt)
-  if ! grep -q "^VIOLATION" $out/check_$pid.txt && [ "$tier" = quick ]; then
-    # the flagged harnesses may belong to the thorough tier only (larger bounds, slow ones)
-    (cd $V && VERIF_ONLY="$hits" python3 check.py $pid --tier thorough > $out/check_${pid}_thorough.txt 2>$out/check_${pid}_thorough.err; echo "exit=$? (tier thorough, restricted to the harnesses the native sweep flagged: $hits)" >> $out/check_${pid}_thorough.txt)
-    if grep -q "^VIOLATION" $out/check_${pid}_thorough.txt; then cp $out/check_${pid}_thorough.txt $out/check_$pid.txt; fi
-  fi
-fi
-if [ -z "$hits" ] || { ! grep -q "^VIOLATION" $out/check_$pid.txt && grep -q "no obligation was generated" $out/check_$pid.txt; }; then
-  (cd $V && python3 check.py $pid --tier $tier > $out/check_$pid.txt 2>$out/check_$pid.err; echo "exit=$? (tier $tier, full check; native sweep flagged nothing the restricted runs could decide)" >> $out/check_$pid.txt)
-fi
-$if [ -n "$hits" ]; then
-  (cd $V && VERIF_ONLY="$hits" python3 check.py $pid --tier $tier > $out/check_$pid.txt 2>$out/check_$pid.err; echo "exit=$? (tier $tier, restricted to the harnesses the native sweep flagged: $hits)" >> $out/check_$pid.txt)
-  if ! grep -q "^VIOLATION" $out/check_$pid.txt && [ "$tier" = quick ]; then
-    # the flagged harnesses may belong to the thorough tier only (larger bounds, slow ones)
-    (cd $V && VERIF_ONLY="$hits" python3 check.py $pid --tier thorough > $out/check_${pid}_thorough.txt 2>$out/check_${pid}_thorough.err; echo "exit=$? (tier thorough, restricted to the harnesses the native sweep flagged: $hits)" >> $out/check_${pid}_thorough.txt)
-    if grep -q "^VIOLATION" $out/check_${pid}_thorough.txt; then cp $out/check_${pid}_thorough.txt $out/check_$pid.txt; fi
-  fi
-fi
-if [ -z "$hits" ] || { ! grep -q "^VIOLATION" $out/check_$pid.txt && grep -q "no obligation was generated" $out/check_$pid.txt; }; then
-  (cd $V && python3 check.py $pid --tier $tier > $out/check_$pid.txt 2>$out/check_$pid.err; echo "exit=$? (tier $tier, full check; native sweep flagged nothing the restricted runs could decide)" >> $out/check_$pid.txt)
-fi
-(if [ -n "$hits" ]; then
-  (cd $V && VERIF_ONLY="$hits" python3 check.py $pid --tier $tier > $out/check_$pid.txt 2>$out/check_$pid.err; echo "exit=$? (tier $tier, restricted to the harnesses the native sweep flagged: $hits)" >> $out/check_$pid.txt)
-  if ! grep -q "^VIOLATION" $out/check_$pid.txt && [ "$tier" = quick ]; then
-    # the flagged harnesses may belong to the thorough tier only (larger bounds, slow ones)
-    (cd $V && VERIF_ONLY="$hits" python3 check.py $pid --tier thorough > $out/check_${pid}_thorough.txt 2>$out/check_${pid}_thorough.err; echo "exit=$? (tier thorough, restricted to the harnesses the native sweep flagged: $hits)" >> $out/check_${pid}_thorough.txt)
-    if grep -q "^VIOLATION" $out/check_${pid}_thorough.txt; then cp $out/check_${pid}_thorough.txt $out/check_$pid.txt; fi
-  fi
-fi
-if [ -z "$hits" ] || { ! grep -q "^VIOLATION" $out/check_$pid.txt && grep -q "no obligation was generated" $out/check_$pid.txt; }; then
-  (cd $V && python3 check.py $pid --tier $tier > $out/check_$pid.txt 2>$out/check_$pid.err; echo "exit=$? (tier $tier, full check; native sweep flagged nothing the restricted runs could decide)" >> $out/check_$pid.txt)
-fi
-dif [ -n "$hits" ]; then
-  (cd $V && VERIF_ONLY="$hits" python3 check.py $pid --tier $tier > $out/check_$pid.txt 2>$out/check_$pid.err; echo "exit=$? (tier $tier, restricted to the harnesses the native sweep flagged: $hits)" >> $out/check_$pid.txt)
-  if ! grep -q "^VIOLATION" $out/check_$pid.txt && [ "$tier" = quick ]; then
-    # the flagged harnesses may belong to the thorough tier only (larger bounds, slow ones)
-    (cd $V && VERIF_ONLY="$hits" python3 check.py $pid --tier thorough > $out/check_${pid}_thorough.txt 2>$out/check_${pid}_thorough.err; echo "exit=$? (tier thorough, restricted to the harnesses the native sweep flagged: $hits)" >> $out/check_${pid}_thorough.txt)
-    if grep -q "^VIOLATION" $out/check_${pid}_thorough.txt; then cp $out/check_${pid}_thorough.txt $out/check_$pid.txt; fi
-  fi
-fi
-if [ -z "$hits" ] || { ! grep -q "^VIOLATION" $out/check_$pid.txt && grep -q "no obligation was generated" $out/check_$pid.txt; }; then
-  (cd $V && python3 check.py $pid --tier $tier > $out/check_$pid.txt 2>$out/check_$pid.err; echo "exit=$? (tier $tier, full check; native sweep flagged nothing the restricted runs could decide)" >> $out/check_$pid.txt)
-fi
-iif [ -n "$hits" ]; then
-  (cd $V && VERIF_ONLY="$hits" python3 check.py $pid --tier $tier > $out/check_$pid.txt 2>$out/check_$pid.err; echo "exit=$? (tier $tier, restricted to the harnesses the native sweep flagged: $hits)" >> $out/check_$pid.txt)
-  if ! grep -q "^VIOLATION" $out/check_$pid.txt && [ "$tier" = quick ]; then
-    # the flagged harnesses may belong to the thorough tier only (larger bounds, slow ones)
-    (cd $V && VERIF_ONLY="$hits" python3 check.py $pid --tier thorough > $out/check_${pid}_thorough.txt 2>$out/check_${pid}_thorough.err; echo "exit=$? (tier thorough, restricted to the harnesses the native sweep flagged: $hits)" >> $out/check_${pid}_thorough.txt)
-    if grep -q "^VIOLATION" $out/check_${pid}_thorough.txt; then cp $out/check_${pid}_thorough.txt $out/check_$pid.txt; fi
-  fi
-fi
-if [ -z "$hits" ] || { ! grep -q "^VIOLATION" $out/check_$pid.txt && grep -q "no obligation was generated" $out/check_$pid.txt; }; then
-  (cd $V && python3 check.py $pid --tier $tier > $out/check_$pid.txt 2>$out/check_$pid.err; echo "exit=$? (tier $tier, full check; native sweep flagged nothing the restricted runs could decide)" >> $out/check_$pid.txt)
-fi
-rif [ -n "$hits" ]; then
-  (cd $V && VERIF_ONLY="$hits" python3 check.py $pid --tier $tier > $out/check_$pid.txt 2>$out/check_$pid.err; echo "exit=$? (tier $tier, restricted to the harnesses the native sweep flagged: $hits)" >> $out/check_$pid.txt)
-  if ! grep -q "^VIOLATION" $out/check_$pid.txt && [ "$tier" = quick ]; then
-    # the flagged harnesses may belong to the thorough tier only (larger bounds, slow ones)
-    (cd $V && VERIF_ONLY="$hits" python3 check.py $pid --tier thorough > $out/check_${pid}_thorough.txt 2>$out/check_${pid}_thorough.err; echo "exit=$? (tier thorough, restricted to the harnesses the native sweep flagged: $hits)" >> $out/check_${pid}_thorough.txt)
-    if grep -q "^VIOLATION" $out/check_${pid}_thorough.txt; then cp $out/check_${pid}_thorough.txt $out/check_$pid.txt; fi
-  fi
-fi
-if [ -z "$hits" ] || { ! grep -q "^VIOLATION" $out/check_$pid.txt && grep -q "no obligation was generated" $out/check_$pid.txt; }; then
-  (cd $V && python3 check.py $pid --tier $tier > $out/check_$pid.txt 2>$out/check_$pid.err; echo "exit=$? (tier $tier, full check; native sweep flagged nothing the restricted runs could decide)" >> $out/check_$pid.txt)
-fi
-nif [ -n "$hits" ]; then
-  (cd $V && VERIF_ONLY="$hits" python3 check.py $pid --tier $tier > $out/check_$pid.txt 2>$out/check_$pid.err; echo "exit=$? (tier $tier, restricted to the harnesses the native sweep flagged: $hits)" >> $out/check_$pid.txt)
-  if ! grep -q "^VIOLATION" $out/check_$pid.txt && [ "$tier" = quick ]; then
-    # the flagged harnesses may belong to the thorough tier only (larger bounds, slow ones)
-    (cd $V && VERIF_ONLY="$hits" python3 check.py $pid --tier thorough > $out/check_${pid}_thorough.txt 2>$out/check_${pid}_thorough.err; echo "exit=$? (tier thorough, restricted to the harnesses the native sweep flagged: $hits)" >> $out/check_${pid}_thorough.txt)
-    if grep -q "^VIOLATION" $out/check_${pid}_thorough.txt; then cp $out/check_${pid}_thorough.txt $out/check_$pid.txt; fi
-  fi
-fi
-if [ -z "$hits" ] || { ! grep -q "^VIOLATION" $out/check_$pid.txt && grep -q "no obligation was generated" $out/check_$pid.txt; }; then
-  (cd $V && python3 check.py $pid --tier $tier > $out/check_$pid.txt 2>$out/check_$pid.err; echo "exit=$? (tier $tier, full check; native sweep flagged nothing the restricted runs could decide)" >> $out/check_$pid.txt)
-fi
-aif [ -n "$hits" ]; then
-  (cd $V && VERIF_ONLY="$hits" python3 check.py $pid --tier $tier > $out/check_$pid.txt 2>$out/check_$pid.err; echo "exit=$? (tier $tier, restricted to the harnesses the native sweep flagged: $hits)" >> $out/check_$pid.txt)
-  if ! grep -q "^VIOLATION" $out/check_$pid.txt && [ "$tier" = quick ]; then
-    # the flagged harnesses may belong to the thorough tier only (larger bounds, slow ones)
-    (cd $V && VERIF_ONLY="$hits" python3 check.py $pid --tier thorough > $out/check_${pid}_thorough.txt 2>$out/check_${pid}_thorough.err; echo "exit=$? (tier thorough, restricted to the harnesses the native sweep flagged: $hits)" >> $out/check_${pid}_thorough.txt)
-    if grep -q "^VIOLATION" $out/check_${pid}_thorough.txt; then cp $out/check_${pid}_thorough.txt $out/check_$pid.txt; fi
-  fi
-fi
-if [ -z "$hits" ] || { ! grep -q "^VIOLATION" $out/check_$pid.txt && grep -q "no obligation was generated" $out/check_$pid.txt; }; then
-  (cd $V && python3 check.py $pid --tier $tier > $out/check_$pid.txt 2>$out/check_$pid.err; echo "exit=$? (tier $tier, full check; native sweep flagged nothing the restricted runs could decide)" >> $out/check_$pid.txt)
-fi
-mif [ -n "$hits" ]; then
-  (cd $V && VERIF_ONLY="$hits" python3 check.py $pid --tier $tier > $out/check_$pid.txt 2>$out/check_$pid.err; echo "exit=$? (tier $tier, restricted to the harnesses the native sweep flagged: $hits)" >> $out/check_$pid.txt)
-  if ! grep -q "^VIOLATION" $out/check_$pid.txt && [ "$tier" = quick ]; then
-    # the flagged harnesses may belong to the thorough tier only (larger bounds, slow ones)
-    (cd $V && VERIF_ONLY="$hits" python3 check.py $pid --tier thorough > $out/check_${pid}_thorough.txt 2>$out/check_${pid}_thorough.err; echo "exit=$? (tier thorough, restricted to the harnesses the native sweep flagged: $hits)" >> $out/check_${pid}_thorough.txt)
-    if grep -q "^VIOLATION" $out/check_${pid}_thorough.txt; then cp $out/check_${pid}_thorough.txt $out/check_$pid.txt; fi
-  fi
-fi
-if [ -z "$hits" ] || { ! grep -q "^VIOLATION" $out/check_$pid.txt && grep -q "no obligation was generated" $out/check_$pid.txt; }; then
-  (cd $V && python3 check.py $pid --tier $tier > $out/check_$pid.txt 2>$out/check_$pid.err; echo "exit=$? (tier $tier, full check; native sweep flagged nothing the restricted runs could decide)" >> $out/check_$pid.txt)
-fi
-eif [ -n "$hits" ]; then
-  (cd $V && VERIF_ONLY="$hits" python3 check.py $pid --tier $tier > $out/check_$pid.txt 2>$out/check_$pid.err; echo "exit=$? (tier $tier, restricted to the harnesses the native sweep flagged: $hits)" >> $out/check_$pid.txt)
-  if ! grep -q "^VIOLATION" $out/check_$pid.txt && [ "$tier" = quick ]; then
-    # the flagged harnesses may belong to the thorough tier only (larger bounds, slow ones)
-    (cd $V && VERIF_ONLY="$hits" python3 check.py $pid --tier thorough > $out/check_${pid}_thorough.txt 2>$out/check_${pid}_thorough.err; echo "exit=$? (tier thorough, restricted to the harnesses the native sweep flagged: $hits)" >> $out/check_${pid}_thorough.txt)
-    if grep -q "^VIOLATION" $out/check_${pid}_thorough.txt; then cp $out/check_${pid}_thorough.txt $out/check_$pid.txt; fi
-  fi
-fi
-if [ -z "$hits" ] || { ! grep -q "^VIOLATION" $out/check_$pid.txt && grep -q "no obligation was generated" $out/check_$pid.txt; }; then
-  (cd $V && python3 check.py $pid --tier $tier > $out/check_$pid.txt 2>$out/check_$pid.err; echo "exit=$? (tier $tier, full check; native sweep flagged nothing the restricted runs could decide)" >> $out/check_$pid.txt)
-fi
- if [ -n "$hits" ]; then
-  (cd $V && VERIF_ONLY="$hits" python3 check.py $pid --tier $tier > $out/check_$pid.txt 2>$out/check_$pid.err; echo "exit=$? (tier $tier, restricted to the harnesses the native sweep flagged: $hits)" >> $out/check_$pid.txt)
-  if ! grep -q "^VIOLATION" $out/check_$pid.txt && [ "$tier" = quick ]; then
-    # the flagged harnesses may belong to the thorough tier only (larger bounds, slow ones)
-    (cd $V && VERIF_ONLY="$hits" python3 check.py $pid --tier thorough > $out/check_${pid}_thorough.txt 2>$out/check_${pid}_thorough.err; echo "exit=$? (tier thorough, restricted to the harnesses the native sweep flagged: $hits)" >> $out/check_${pid}_thorough.txt)
-    if grep -q "^VIOLATION" $out/check_${pid}_thorough.txt; then cp $out/check_${pid}_thorough.txt $out/check_$pid.txt; fi
-  fi
-fi
-if [ -z "$hits" ] || { ! grep -q "^VIOLATION" $out/check_$pid.txt && grep -q "no obligation was generated" $out/check_$pid.txt; }; then
-  (cd $V && python3 check.py $pid --tier $tier > $out/check_$pid.txt 2>$out/check_$pid.err; echo "exit=$? (tier $tier, full check; native sweep flagged nothing the restricted runs could decide)" >> $out/check_$pid.txt)
-fi
-$if [ -n "$hits" ]; then
-  (cd $V && VERIF_ONLY="$hits" python3 check.py $pid --tier $tier > $out/check_$pid.txt 2>$out/check_$pid.err; echo "exit=$? (tier $tier, restricted to the harnesses the native sweep flagged: $hits)" >> $out/check_$pid.txt)
-  if ! grep -q "^VIOLATION" $out/check_$pid.txt && [ "$tier" = quick ]; then
-    # the flagged harnesses may belong to the thorough tier only (larger bounds, slow ones)
-    (cd $V && VERIF_ONLY="$hits" python3 check.py $pid --tier thorough > $out/check_${pid}_thorough.txt 2>$out/check_${pid}_thorough.err; echo "exit=$? (tier thorough, restricted to the harnesses the native sweep flagged: $hits)" >> $out/check_${pid}_thorough.txt)
-    if grep -q "^VIOLATION" $out/check_${pid}_thorough.txt; then cp $out/check_${pid}_thorough.txt $out/check_$pid.txt; fi
-  fi
-fi
-if [ -z "$hits" ] || { ! grep -q "^VIOLATION" $out/check_$pid.txt && grep -q "no obligation was generated" $out/check_$pid.txt; }; then
-  (cd $V && python3 check.py $pid --tier $tier > $out/check_$pid.txt 2>$out/check_$pid.err; echo "exit=$? (tier $tier, full check; native sweep flagged nothing the restricted runs could decide)" >> $out/check_$pid.txt)
-fi
-0if [ -n "$hits" ]; then
-  (cd $V && VERIF_ONLY="$hits" python3 check.py $pid --tier $tier > $out/check_$pid.txt 2>$out/check_$pid.err; echo "exit=$? (tier $tier, restricted to the harnesses the native sweep flagged: $hits)" >> $out/check_$pid.txt)
-  if ! grep -q "^VIOLATION" $out/check_$pid.txt && [ "$tier" = quick ]; then
-    # the flagged harnesses may belong to the thorough tier only (larger bounds, slow ones)
-    (cd $V && VERIF_ONLY="$hits" python3 check.py $pid --tier thorough > $out/check_${pid}_thorough.txt 2>$out/check_${pid}_thorough.err; echo "exit=$? (tier thorough, restricted to the harnesses the native sweep flagged: $hits)" >> $out/check_${pid}_thorough.txt)
-    if grep -q "^VIOLATION" $out/check_${pid}_thorough.txt; then cp $out/check_${pid}_thorough.txt $out/check_$pid.txt; fi
-  fi
-fi
-if [ -z "$hits" ] || { ! grep -q "^VIOLATION" $out/check_$pid.txt && grep -q "no obligation was generated" $out/check_$pid.txt; }; then
-  (cd $V && python3 check.py $pid --tier $tier > $out/check_$pid.txt 2>$out/check_$pid.err; echo "exit=$? (tier $tier, full check; native sweep flagged nothing the restricted runs could decide)" >> $out/check_$pid.txt)
-fi
-)if [ -n "$hits" ]; then
-  (cd $V && VERIF_ONLY="$hits" python3 check.py $pid --tier $tier > $out/check_$pid.txt 2>$out/check_$pid.err; echo "exit=$? (tier $tier, restricted to the harnesses the native sweep flagged: $hits)" >> $out/check_$pid.txt)
-  if ! grep -q "^VIOLATION" $out/check_$pid.txt && [ "$tier" = quick ]; then
-    # the flagged harnesses may belong to the thorough tier only (larger bounds, slow ones)
-    (cd $V && VERIF_ONLY="$hits" python3 check.py $pid --tier thorough > $out/check_${pid}_thorough.txt 2>$out/check_${pid}_thorough.err; echo "exit=$? (tier thorough, restricted to the harnesses the native sweep flagged: $hits)" >> $out/check_${pid}_thorough.txt)
-    if grep -q "^VIOLATION" $out/check_${pid}_thorough.txt; then cp $out/check_${pid}_thorough.txt $out/check_$pid.txt; fi
-  fi
-fi
-if [ -z "$hits" ] || { ! grep -q "^VIOLATION" $out/check_$pid.txt && grep -q "no obligation was generated" $out/check_$pid.txt; }; then
-  (cd $V && python3 check.py $pid --tier $tier > $out/check_$pid.txt 2>$out/check_$pid.err; echo "exit=$? (tier $tier, full check; native sweep flagged nothing the restricted runs could decide)" >> $out/check_$pid.txt)
-fi
- if [ -n "$hits" ]; then
-  (cd $V && VERIF_ONLY="$hits" python3 check.py $pid --tier $tier > $out/check_$pid.txt 2>$out/check_$pid.err; echo "exit=$? (tier $tier, restricted to the harnesses the native sweep flagged: $hits)" >> $out/check_$pid.txt)
-  if ! grep -q "^VIOLATION" $out/check_$pid.txt && [ "$tier" = quick ]; then
-    # the flagged harnesses may belong to the thorough tier only (larger bounds, slow ones)
-    (cd $V && VERIF_ONLY="$hits" python3 check.py $pid --tier thorough > $out/check_${pid}_thorough.txt 2>$out/check_${pid}_thorough.err; echo "exit=$? (tier thorough, restricted to the harnesses the native sweep flagged: $hits)" >> $out/check_${pid}_thorough.txt)
-    if grep -q "^VIOLATION" $out/check_${pid}_thorough.txt; then cp $out/check_${pid}_thorough.txt $out/check_$pid.txt; fi
-  fi
-fi
-if [ -z "$hits" ] || { ! grep -q "^VIOLATION" $out/check_$pid.txt && grep -q "no obligation was generated" $out/check_$pid.txt; }; then
-  (cd $V && python3 check.py $pid --tier $tier > $out/check_$pid.txt 2>$out/check_$pid.err; echo "exit=$? (tier $tier, full check; native sweep flagged nothing the restricted runs could decide)" >> $out/check_$pid.txt)
-fi
-&if [ -n "$hits" ]; then
-  (cd $V && VERIF_ONLY="$hits" python3 check.py $pid --tier $tier > $out/check_$pid.txt 2>$out/check_$pid.err; echo "exit=$? (tier $tier, restricted to the harnesses the native sweep flagged: $hits)" >> $out/check_$pid.txt)
-  if ! grep -q "^VIOLATION" $out/check_$pid.txt && [ "$tier" = quick ]; then
-    # the flagged harnesses may belong to the thorough tier only (larger bounds, slow ones)
-    (cd $V && VERIF_ONLY="$hits" python3 check.py $pid --tier thorough > $out/check_${pid}_thorough.txt 2>$out/check_${pid}_thorough.err; echo "exit=$? (tier thorough, restricted to the harnesses the native sweep flagged: $hits)" >> $out/check_${pid}_thorough.txt)
-    if grep -q "^VIOLATION" $out/check_${pid}_thorough.txt; then cp $out/check_${pid}_thorough.txt $out/check_$pid.txt; fi
-  fi
-fi
-if [ -z "$hits" ] || { ! grep -q "^VIOLATION" $out/check_$pid.txt && grep -q "no obligation was generated" $out/check_$pid.txt; }; then
-  (cd $V && python3 check.py $pid --tier $tier > $out/check_$pid.txt 2>$out/check_$pid.err; echo "exit=$? (tier $tier, full check; native sweep flagged nothing the restricted runs could decide)" >> $out/check_$pid.txt)
-fi
-&if [ -n "$hits" ]; then
-  (cd $V && VERIF_ONLY="$hits" python3 check.py $pid --tier $tier > $out/check_$pid.txt 2>$out/check_$pid.err; echo "exit=$? (tier $tier, restricted to the harnesses the native sweep flagged: $hits)" >> $out/check_$pid.txt)
-  if ! grep -q "^VIOLATION" $out/check_$pid.txt && [ "$tier" = quick ]; then
-    # the flagged harnesses may belong to the thorough tier only (larger bounds, slow ones)
-    (cd $V && VERIF_ONLY="$hits" python3 check.py $pid --tier thorough > $out/check_${pid}_thorough.txt 2>$out/check_${pid}_thorough.err; echo "exit=$? (tier thorough, restricted to the harnesses the native sweep flagged: $hits)" >> $out/check_${pid}_thorough.txt)
-    if grep -q "^VIOLATION" $out/check_${pid}_thorough.txt; then cp $out/check_${pid}_thorough.txt $out/check_$pid.txt; fi
-  fi
-fi
-if [ -z "$hits" ] || { ! grep -q "^VIOLATION" $out/check_$pid.txt && grep -q "no obligation was generated" $out/check_$pid.txt; }; then
-  (cd $V && python3 check.py $pid --tier $tier > $out/check_$pid.txt 2>$out/check_$pid.err; echo "exit=$? (tier $tier, full check; native sweep flagged nothing the restricted runs could decide)" >> $out/check_$pid.txt)
-fi
- if [ -n "$hits" ]; then
-  (cd $V && VERIF_ONLY="$hits" python3 check.py $pid --tier $tier > $out/check_$pid.txt 2>$out/check_$pid.err; echo "exit=$? (tier $tier, restricted to the harnesses the native sweep flagged: $hits)" >> $out/check_$pid.txt)
-  if ! grep -q "^VIOLATION" $out/check_$pid.txt && [ "$tier" = quick ]; then
-    # the flagged harnesses may belong to the thorough tier only (larger bounds, slow ones)
-    (cd $V && VERIF_ONLY="$hits" python3 check.py $pid --tier thorough > $out/check_${pid}_thorough.txt 2>$out/check_${pid}_thorough.err; echo "exit=$? (tier thorough, restricted to the harnesses the native sweep flagged: $hits)" >> $out/check_${pid}_thorough.txt)
-    if grep -q "^VIOLATION" $out/check_${pid}_thorough.txt; then cp $out/check_${pid}_thorough.txt $out/check_$pid.txt; fi
-  fi
-fi
-if [ -z "$hits" ] || { ! grep -q "^VIOLATION" $out/check_$pid.txt && grep -q "no obligation was generated" $out/check_$pid.txt; }; then
-  (cd $V && python3 check.py $pid --tier $tier > $out/check_$pid.txt 2>$out/check_$pid.err; echo "exit=$? (tier $tier, full check; native sweep flagged nothing the restricted runs could decide)" >> $out/check_$pid.txt)
-fi
-pif [ -n "$hits" ]; then
-  (cd $V && VERIF_ONLY="$hits" python3 check.py $pid --tier $tier > $out/check_$pid.txt 2>$out/check_$pid.err; echo "exit=$? (tier $tier, restricted to the harnesses the native sweep flagged: $hits)" >> $out/check_$pid.txt)
-  if ! grep -q "^VIOLATION" $out/check_$pid.txt && [ "$tier" = quick ]; then
-    # the flagged harnesses may belong to the thorough tier only (larger bounds, slow ones)
-    (cd $V && VERIF_ONLY="$hits" python3 check.py $pid --tier thorough > $out/check_${pid}_thorough.txt 2>$out/check_${pid}_thorough.err; echo "exit=$? (tier thorough, restricted to the harnesses the native sweep flagged: $hits)" >> $out/check_${pid}_thorough.txt)
-    if grep -q "^VIOLATION" $out/check_${pid}_thorough.txt; then cp $out/check_${pid}_thorough.txt $out/check_$pid.txt; fi
-  fi
-fi
-if [ -z "$hits" ] || { ! grep -q "^VIOLATION" $out/check_$pid.txt && grep -q "no obligation was generated" $out/check_$pid.txt; }; then
-  (cd $V && python3 check.py $pid --tier $tier > $out/check_$pid.txt 2>$out/check_$pid.err; echo "exit=$? (tier $tier, full check; native sweep flagged nothing the restricted runs could decide)" >> $out/check_$pid.txt)
-fi
-wif [ -n "$hits" ]; then
-  (cd $V && VERIF_ONLY="$hits" python3 check.py $pid --tier $tier > $out/check_$pid.txt 2>$out/check_$pid.err; echo "exit=$? (tier $tier, restricted to the harnesses the native sweep flagged: $hits)" >> $out/check_$pid.txt)
-  if ! grep -q "^VIOLATION" $out/check_$pid.txt && [ "$tier" = quick ]; then
-    # the flagged harnesses may belong to the thorough tier only (larger bounds, slow ones)
-    (cd $V && VERIF_ONLY="$hits" python3 check.py $pid --tier thorough > $out/check_${pid}_thorough.txt 2>$out/check_${pid}_thorough.err; echo "exit=$? (tier thorough, restricted to the harnesses the native sweep flagged: $hits)" >> $out/check_${pid}_thorough.txt)
-    if grep -q "^VIOLATION" $out/check_${pid}_thorough.txt; then cp $out/check_${pid}_thorough.txt $out/check_$pid.txt; fi
-  fi
-fi
-if [ -z "$hits" ] || { ! grep -q "^VIOLATION" $out/check_$pid.txt && grep -q "no obligation was generated" $out/check_$pid.txt; }; then
-  (cd $V && python3 check.py $pid --tier $tier > $out/check_$pid.txt 2>$out/check_$pid.err; echo "exit=$? (tier $tier, full check; native sweep flagged nothing the restricted runs could decide)" >> $out/check_$pid.txt)
-fi
-dif [ -n "$hits" ]; then
-  (cd $V && VERIF_ONLY="$hits" python3 check.py $pid --tier $tier > $out/check_$pid.txt 2>$out/check_$pid.err; echo "exit=$? (tier $tier, restricted to the harnesses the native sweep flagged: $hits)" >> $out/check_$pid.txt)
-  if ! grep -q "^VIOLATION" $out/check_$pid.txt && [ "$tier" = quick ]; then
-    # the flagged harnesses may belong to the thorough tier only (larger bounds, slow ones)
-    (cd $V && VERIF_ONLY="$hits" python3 check.py $pid --tier thorough > $out/check_${pid}_thorough.txt 2>$out/check_${pid}_thorough.err; echo "exit=$? (tier thorough, restricted to the harnesses the native sweep flagged: $hits)" >> $out/check_${pid}_thorough.txt)
-    if grep -q "^VIOLATION" $out/check_${pid}_thorough.txt; then cp $out/check_${pid}_thorough.txt $out/check_$pid.txt; fi
-  fi
-fi
-if [ -z "$hits" ] || { ! grep -q "^VIOLATION" $out/check_$pid.txt && grep -q "no obligation was generated" $out/check_$pid.txt; }; then
-  (cd $V && python3 check.py $pid --tier $tier > $out/check_$pid.txt 2>$out/check_$pid.err; echo "exit=$? (tier $tier, full check; native sweep flagged nothing the restricted runs could decide)" >> $out/check_$pid.txt)
-fi
-)if [ -n "$hits" ]; then
-  (cd $V && VERIF_ONLY="$hits" python3 check.py $pid --tier $tier > $out/check_$pid.txt 2>$out/check_$pid.err; echo "exit=$? (tier $tier, restricted to the harnesses the native sweep flagged: $hits)" >> $out/check_$pid.txt)
-  if ! grep -q "^VIOLATION" $out/check_$pid.txt && [ "$tier" = quick ]; then
-    # the flagged harnesses may belong to the thorough tier only (larger bounds, slow ones)
-    (cd $V && VERIF_ONLY="$hits" python3 check.py $pid --tier thorough > $out/check_${pid}_thorough.txt 2>$out/check_${pid}_thorough.err; echo "exit=$? (tier thorough, restricted to the harnesses the native sweep flagged: $hits)" >> $out/check_${pid}_thorough.txt)
-    if grep -q "^VIOLATION" $out/check_${pid}_thorough.txt; then cp $out/check_${pid}_thorough.txt $out/check_$pid.txt; fi
-  fi
-fi
-if [ -z "$hits" ] || { ! grep -q "^VIOLATION" $out/check_$pid.txt && grep -q "no obligation was generated" $out/check_$pid.txt; }; then
-  (cd $V && python3 check.py $pid --tier $tier > $out/check_$pid.txt 2>$out/check_$pid.err; echo "exit=$? (tier $tier, full check; native sweep flagged nothing the restricted runs could decide)" >> $out/check_$pid.txt)
-fi
-
-if [ -n "$hits" ]; then
-  (cd $V && VERIF_ONLY="$hits" python3 check.py $pid --tier $tier > $out/check_$pid.txt 2>$out/check_$pid.err; echo "exit=$? (tier $tier, restricted to the harnesses the native sweep flagged: $hits)" >> $out/check_$pid.txt)
-  if ! grep -q "^VIOLATION" $out/check_$pid.txt && [ "$tier" = quick ]; then
-    # the flagged harnesses may belong to the thorough tier only (larger bounds, slow ones)
-    (cd $V && VERIF_ONLY="$hits" python3 check.py $pid --tier thorough > $out/check_${pid}_thorough.txt 2>$out/check_${pid}_thorough.err; echo "exit=$? (tier thorough, restricted to the harnesses the native sweep flagged: $hits)" >> $out/check_${pid}_thorough.txt)
-    if grep -q "^VIOLATION" $out/check_${pid}_thorough.txt; then cp $out/check_${pid}_thorough.txt $out/check_$pid.txt; fi
-  fi
-fi
-if [ -z "$hits" ] || { ! grep -q "^VIOLATION" $out/check_$pid.txt && grep -q "no obligation was generated" $out/check_$pid.txt; }; then
-  (cd $V && python3 check.py $pid --tier $tier > $out/check_$pid.txt 2>$out/check_$pid.err; echo "exit=$? (tier $tier, full check; native sweep flagged nothing the restricted runs could decide)" >> $out/check_$pid.txt)
-fi
-nif [ -n "$hits" ]; then
-  (cd $V && VERIF_ONLY="$hits" python3 check.py $pid --tier $tier > $out/check_$pid.txt 2>$out/check_$pid.err; echo "exit=$? (tier $tier, restricted to the harnesses the native sweep flagged: $hits)" >> $out/check_$pid.txt)
-  if ! grep -q "^VIOLATION" $out/check_$pid.txt && [ "$tier" = quick ]; then
-    # the flagged harnesses may belong to the thorough tier only (larger bounds, slow ones)
-    (cd $V && VERIF_ONLY="$hits" python3 check.py $pid --tier thorough > $out/check_${pid}_thorough.txt 2>$out/check_${pid}_thorough.err; echo "exit=$? (tier thorough, restricted to the harnesses the native sweep flagged: $hits)" >> $out/check_${pid}_thorough.txt)
-    if grep -q "^VIOLATION" $out/check_${pid}_thorough.txt; then cp $out/check_${pid}_thorough.txt $out/check_$pid.txt; fi
-  fi
-fi
-if [ -z "$hits" ] || { ! grep -q "^VIOLATION" $out/check_$pid.txt && grep -q "no obligation was generated" $out/check_$pid.txt; }; then
-  (cd $V && python3 check.py $pid --tier $tier > $out/check_$pid.txt 2>$out/check_$pid.err; echo "exit=$? (tier $tier, full check; native sweep flagged nothing the restricted runs could decide)" >> $out/check_$pid.txt)
-fi
-aif [ -n "$hits" ]; then
-  (cd $V && VERIF_ONLY="$hits" python3 check.py $pid --tier $tier > $out/check_$pid.txt 2>$out/check_$pid.err; echo "exit=$? (tier $tier, restricted to the harnesses the native sweep flagged: $hits)" >> $out/check_$pid.txt)
-  if ! grep -q "^VIOLATION" $out/check_$pid.txt && [ "$tier" = quick ]; then
-    # the flagged harnesses may belong to the thorough tier only (larger bounds, slow ones)
-    (cd $V && VERIF_ONLY="$hits" python3 check.py $pid --tier thorough > $out/check_${pid}_thorough.txt 2>$out/check_${pid}_thorough.err; echo "exit=$? (tier thorough, restricted to the harnesses the native sweep flagged: $hits)" >> $out/check_${pid}_thorough.txt)
-    if grep -q "^VIOLATION" $out/check_${pid}_thorough.txt; then cp $out/check_${pid}_thorough.txt $out/check_$pid.txt; fi
-  fi
-fi
-if [ -z "$hits" ] || { ! grep -q "^VIOLATION" $out/check_$pid.txt && grep -q "no obligation was generated" $out/check_$pid.txt; }; then
-  (cd $V && python3 check.py $pid --tier $tier > $out/check_$pid.txt 2>$out/check_$pid.err; echo "exit=$? (tier $tier, full check; native sweep flagged nothing the restricted runs could decide)" >> $out/check_$pid.txt)
-fi
-mif [ -n "$hits" ]; then
-  (cd $V && VERIF_ONLY="$hits" python3 check.py $pid --tier $tier > $out/check_$pid.txt 2>$out/check_$pid.err; echo "exit=$? (tier $tier, restricted to the harnesses the native sweep flagged: $hits)" >> $out/check_$pid.txt)
-  if ! grep -q "^VIOLATION" $out/check_$pid.txt && [ "$tier" = quick ]; then
-    # the flagged harnesses may belong to the thorough tier only (larger bounds, slow ones)
-    (cd $V && VERIF_ONLY="$hits" python3 check.py $pid --tier thorough > $out/check_${pid}_thorough.txt 2>$out/check_${pid}_thorough.err; echo "exit=$? (tier thorough, restricted to the harnesses the native sweep flagged: $hits)" >> $out/check_${pid}_thorough.txt)
-    if grep -q "^VIOLATION" $out/check_${pid}_thorough.txt; then cp $out/check_${pid}_thorough.txt $out/check_$pid.txt; fi
-  fi
-fi
-if [ -z "$hits" ] || { ! grep -q "^VIOLATION" $out/check_$pid.txt && grep -q "no obligation was generated" $out/check_$pid.txt; }; then
-  (cd $V && python3 check.py $pid --tier $tier > $out/check_$pid.txt 2>$out/check_$pid.err; echo "exit=$? (tier $tier, full check; native sweep flagged nothing the restricted runs could decide)" >> $out/check_$pid.txt)
-fi
-eif [ -n "$hits" ]; then
-  (cd $V && VERIF_ONLY="$hits" python3 check.py $pid --tier $tier > $out/check_$pid.txt 2>$out/check_$pid.err; echo "exit=$? (tier $tier, restricted to the harnesses the native sweep flagged: $hits)" >> $out/check_$pid.txt)
-  if ! grep -q "^VIOLATION" $out/check_$pid.txt && [ "$tier" = quick ]; then
-    # the flagged harnesses may belong to the thorough tier only (larger bounds, slow ones)
-    (cd $V && VERIF_ONLY="$hits" python3 check.py $pid --tier thorough > $out/check_${pid}_thorough.txt 2>$out/check_${pid}_thorough.err; echo "exit=$? (tier thorough, restricted to the harnesses the native sweep flagged: $hits)" >> $out/check_${pid}_thorough.txt)
-    if grep -q "^VIOLATION" $out/check_${pid}_thorough.txt; then cp $out/check_${pid}_thorough.txt $out/check_$pid.txt; fi
-  fi
-fi
-if [ -z "$hits" ] || { ! grep -q "^VIOLATION" $out/check_$pid.txt && grep -q "no obligation was generated" $out/check_$pid.txt; }; then
-  (cd $V && python3 check.py $pid --tier $tier > $out/check_$pid.txt 2>$out/check_$pid.err; echo "exit=$? (tier $tier, full check; native sweep flagged nothing the restricted runs could decide)" >> $out/check_$pid.txt)
-fi
-=if [ -n "$hits" ]; then
-  (cd $V && VERIF_ONLY="$hits" python3 check.py $pid --tier $tier > $out/check_$pid.txt 2>$out/check_$pid.err; echo "exit=$? (tier $tier, restricted to the harnesses the native sweep flagged: $hits)" >> $out/check_$pid.txt)
-  if ! grep -q "^VIOLATION" $out/check_$pid.txt && [ "$tier" = quick ]; then
-    # the flagged harnesses may belong to the thorough tier only (larger bounds, slow ones)
-    (cd $V && VERIF_ONLY="$hits" python3 check.py $pid --tier thorough > $out/check_${pid}_thorough.txt 2>$out/check_${pid}_thorough.err; echo "exit=$? (tier thorough, restricted to the harnesses the native sweep flagged: $hits)" >> $out/check_${pid}_thorough.txt)
-    if grep -q "^VIOLATION" $out/check_${pid}_thorough.txt; then cp $out/check_${pid}_thorough.txt $out/check_$pid.txt; fi
-  fi
-fi
-if [ -z "$hits" ] || { ! grep -q "^VIOLATION" $out/check_$pid.txt && grep -q "no obligation was generated" $out/check_$pid.txt; }; then
-  (cd $V && python3 check.py $pid --tier $tier > $out/check_$pid.txt 2>$out/check_$pid.err; echo "exit=$? (tier $tier, full check; native sweep flagged nothing the restricted runs could decide)" >> $out/check_$pid.txt)
-fi
-$if [ -n "$hits" ]; then
-  (cd $V && VERIF_ONLY="$hits" python3 check.py $pid --tier $tier > $out/check_$pid.txt 2>$out/check_$pid.err; echo "exit=$? (tier $tier, restricted to the harnesses the native sweep flagged: $hits)" >> $out/check_$pid.txt)
-  if ! grep -q "^VIOLATION" $out/check_$pid.txt && [ "$tier" = quick ]; then
-    # the flagged harnesses may belong to the thorough tier only (larger bounds, slow ones)
-    (cd $V && VERIF_ONLY="$hits" python3 check.py $pid --tier thorough > $out/check_${pid}_thorough.txt 2>$out/check_${pid}_thorough.err; echo "exit=$? (tier thorough, restricted to the harnesses the native sweep flagged: $hits)" >> $out/check_${pid}_thorough.txt)
-    if grep -q "^VIOLATION" $out/check_${pid}_thorough.txt; then cp $out/check_${pid}_thorough.txt $out/check_$pid.txt; fi
-  fi
-fi
-if [ -z "$hits" ] || { ! grep -q "^VIOLATION" $out/check_$pid.txt && grep -q "no obligation was generated" $out/check_$pid.txt; }; then
-  (cd $V && python3 check.py $pid --tier $tier > $out/check_$pid.txt 2>$out/check_$pid.err; echo "exit=$? (tier $tier, full check; native sweep flagged nothing the restricted runs could decide)" >> $out/check_$pid.txt)
-fi
-1if [ -n "$hits" ]; then
-  (cd $V && VERIF_ONLY="$hits" python3 check.py $pid --tier $tier > $out/check_$pid.txt 2>$out/check_$pid.err; echo "exit=$? (tier $tier, restricted to the harnesses the native sweep flagged: $hits)" >> $out/check_$pid.txt)
-  if ! grep -q "^VIOLATION" $out/check_$pid.txt && [ "$tier" = quick ]; then
-    # the flagged harnesses may belong to the thorough tier only (larger bounds, slow ones)
-    (cd $V && VERIF_ONLY="$hits" python3 check.py $pid --tier thorough > $out/check_${pid}_thorough.txt 2>$out/check_${pid}_thorough.err; echo "exit=$? (tier thorough, restricted to the harnesses the native sweep flagged: $hits)" >> $out/check_${pid}_thorough.txt)
-    if grep -q "^VIOLATION" $out/check_${pid}_thorough.txt; then cp $out/check_${pid}_thorough.txt $out/check_$pid.txt; fi
-  fi
-fi
-if [ -z "$hits" ] || { ! grep -q "^VIOLATION" $out/check_$pid.txt && grep -q "no obligation was generated" $out/check_$pid.txt; }; then
-  (cd $V && python3 check.py $pid --tier $tier > $out/check_$pid.txt 2>$out/check_$pid.err; echo "exit=$? (tier $tier, full check; native sweep flagged nothing the restricted runs could decide)" >> $out/check_$pid.txt)
-fi
-;if [ -n "$hits" ]; then
-  (cd $V && VERIF_ONLY="$hits" python3 check.py $pid --tier $tier > $out/check_$pid.txt 2>$out/check_$pid.err; echo "exit=$? (tier $tier, restricted to the harnesses the native sweep flagged: $hits)" >> $out/check_$pid.txt)
-  if ! grep -q "^VIOLATION" $out/check_$pid.txt && [ "$tier" = quick ]; then
-    # the flagged harnesses may belong to the thorough tier only (larger bounds, slow ones)
-    (cd $V && VERIF_ONLY="$hits" python3 check.py $pid --tier thorough > $out/check_${pid}_thorough.txt 2>$out/check_${pid}_thorough.err; echo "exit=$? (tier thorough, restricted to the harnesses the native sweep flagged: $hits)" >> $out/check_${pid}_thorough.txt)
-    if grep -q "^VIOLATION" $out/check_${pid}_thorough.txt; then cp $out/check_${pid}_thorough.txt $out/check_$pid.txt; fi
-  fi
-fi
-if [ -z "$hits" ] || { ! grep -q "^VIOLATION" $out/check_$pid.txt && grep -q "no obligation was generated" $out/check_$pid.txt; }; then
-  (cd $V && python3 check.py $pid --tier $tier > $out/check_$pid.txt 2>$out/check_$pid.err; echo "exit=$? (tier $tier, full check; native sweep flagged nothing the restricted runs could decide)" >> $out/check_$pid.txt)
-fi
- if [ -n "$hits" ]; then
-  (cd $V && VERIF_ONLY="$hits" python3 check.py $pid --tier $tier > $out/check_$pid.txt 2>$out/check_$pid.err; echo "exit=$? (tier $tier, restricted to the harnesses the native sweep flagged: $hits)" >> $out/check_$pid.txt)
-  if ! grep -q "^VIOLATION" $out/check_$pid.txt && [ "$tier" = quick ]; then
-    # the flagged harnesses may belong to the thorough tier only (larger bounds, slow ones)
-    (cd $V && VERIF_ONLY="$hits" python3 check.py $pid --tier thorough > $out/check_${pid}_thorough.txt 2>$out/check_${pid}_thorough.err; echo "exit=$? (tier thorough, restricted to the harnesses the native sweep flagged: $hits)" >> $out/check_${pid}_thorough.txt)
-    if grep -q "^VIOLATION" $out/check_${pid}_thorough.txt; then cp $out/check_${pid}_thorough.txt $out/check_$pid.txt; fi
-  fi
-fi
-if [ -z "$hits" ] || { ! grep -q "^VIOLATION" $out/check_$pid.txt && grep -q "no obligation was generated" $out/check_$pid.txt; }; then
-  (cd $V && python3 check.py $pid --tier $tier > $out/check_$pid.txt 2>$out/check_$pid.err; echo "exit=$? (tier $tier, full check; native sweep flagged nothing the restricted runs could decide)" >> $out/check_$pid.txt)
-fi
-tif [ -n "$hits" ]; then
-  (cd $V && VERIF_ONLY="$hits" python3 check.py $pid --tier $tier > $out/check_$pid.txt 2>$out/check_$pid.err; echo "exit=$? (tier $tier, restricted to the harnesses the native sweep flagged: $hits)" >> $out/check_$pid.txt)
-  if ! grep -q "^VIOLATION" $out/check_$pid.txt && [ "$tier" = quick ]; then
-    # the flagged harnesses may belong to the thorough tier only (larger bounds, slow ones)
-    (cd $V && VERIF_ONLY="$hits" python3 check.py $pid --tier thorough > $out/check_${pid}_thorough.txt 2>$out/check_${pid}_thorough.err; echo "exit=$? (tier thorough, restricted to the harnesses the native sweep flagged: $hits)" >> $out/check_${pid}_thorough.txt)
-    if grep -q "^VIOLATION" $out/check_${pid}_thorough.txt; then cp $out/check_${pid}_thorough.txt $out/check_$pid.txt; fi
-  fi
-fi
-if [ -z "$hits" ] || { ! grep -q "^VIOLATION" $out/check_$pid.txt && grep -q "no obligation was generated" $out/check_$pid.txt; }; then
-  (cd $V && python3 check.py $pid --tier $tier > $out/check_$pid.txt 2>$out/check_$pid.err; echo "exit=$? (tier $tier, full check; native sweep flagged nothing the restricted runs could decide)" >> $out/check_$pid.txt)
-fi
-iif [ -n "$hits" ]; then
-  (cd $V && VERIF_ONLY="$hits" python3 check.py $pid --tier $tier > $out/check_$pid.txt 2>$out/check_$pid.err; echo "exit=$? (tier $tier, restricted to the harnesses the native sweep flagged: $hits)" >> $out/check_$pid.txt)
-  if ! grep -q "^VIOLATION" $out/check_$pid.txt && [ "$tier" = quick ]; then
-    # the flagged harnesses may belong to the thorough tier only (larger bounds, slow ones)
-    (cd $V && VERIF_ONLY="$hits" python3 check.py $pid --tier thorough > $out/check_${pid}_thorough.txt 2>$out/check_${pid}_thorough.err; echo "exit=$? (tier thorough, restricted to the harnesses the native sweep flagged: $hits)" >> $out/check_${pid}_thorough.txt)
-    if grep -q "^VIOLATION" $out/check_${pid}_thorough.txt; then cp $out/check_${pid}_thorough.txt $out/check_$pid.txt; fi
-  fi
-fi
-if [ -z "$hits" ] || { ! grep -q "^VIOLATION" $out/check_$pid.txt && grep -q "no obligation was generated" $out/check_$pid.txt; }; then
-  (cd $V && python3 check.py $pid --tier $tier > $out/check_$pid.txt 2>$out/check_$pid.err; echo "exit=$? (tier $tier, full check; native sweep flagged nothing the restricted runs could decide)" >> $out/check_$pid.txt)
-fi
-eif [ -n "$hits" ]; then
-  (cd $V && VERIF_ONLY="$hits" python3 check.py $pid --tier $tier > $out/check_$pid.txt 2>$out/check_$pid.err; echo "exit=$? (tier $tier, restricted to the harnesses the native sweep flagged: $hits)" >> $out/check_$pid.txt)
-  if ! grep -q "^VIOLATION" $out/check_$pid.txt && [ "$tier" = quick ]; then
-    # the flagged harnesses may belong to the thorough tier only (larger bounds, slow ones)
-    (cd $V && VERIF_ONLY="$hits" python3 check.py $pid --tier thorough > $out/check_${pid}_thorough.txt 2>$out/check_${pid}_thorough.err; echo "exit=$? (tier thorough, restricted to the harnesses the native sweep flagged: $hits)" >> $out/check_${pid}_thorough.txt)
-    if grep -q "^VIOLATION" $out/check_${pid}_thorough.txt; then cp $out/check_${pid}_thorough.txt $out/check_$pid.txt; fi
-  fi
-fi
-if [ -z "$hits" ] || { ! grep -q "^VIOLATION" $out/check_$pid.txt && grep -q "no obligation was generated" $out/check_$pid.txt; }; then
-  (cd $V && python3 check.py $pid --tier $tier > $out/check_$pid.txt 2>$out/check_$pid.err; echo "exit=$? (tier $tier, full check; native sweep flagged nothing the restricted runs could decide)" >> $out/check_$pid.txt)
-fi
-rif [ -n "$hits" ]; then
-  (cd $V && VERIF_ONLY="$hits" python3 check.py $pid --tier $tier > $out/check_$pid.txt 2>$out/check_$pid.err; echo "exit=$? (tier $tier, restricted to the harnesses the native sweep flagged: $hits)" >> $out/check_$pid.txt)
-  if ! grep -q "^VIOLATION" $out/check_$pid.txt && [ "$tier" = quick ]; then
-    # the flagged harnesses may belong to the thorough tier only (larger bounds, slow ones)
-    (cd $V && VERIF_ONLY="$hits" python3 check.py $pid --tier thorough > $out/check_${pid}_thorough.txt 2>$out/check_${pid}_thorough.err; echo "exit=$? (tier thorough, restricted to the harnesses the native sweep flagged: $hits)" >> $out/check_${pid}_thorough.txt)
-    if grep -q "^VIOLATION" $out/check_${pid}_thorough.txt; then cp $out/check_${pid}_thorough.txt $out/check_$pid.txt; fi
-  fi
-fi
-if [ -z "$hits" ] || { ! grep -q "^VIOLATION" $out/check_$pid.txt && grep -q "no obligation was generated" $out/check_$pid.txt; }; then
-  (cd $V && python3 check.py $pid --tier $tier > $out/check_$pid.txt 2>$out/check_$pid.err; echo "exit=$? (tier $tier, full check; native sweep flagged nothing the restricted runs could decide)" >> $out/check_$pid.txt)
-fi
-=if [ -n "$hits" ]; then
-  (cd $V && VERIF_ONLY="$hits" python3 check.py $pid --tier $tier > $out/check_$pid.txt 2>$out/check_$pid.err; echo "exit=$? (tier $tier, restricted to the harnesses the native sweep flagged: $hits)" >> $out/check_$pid.txt)
-  if ! grep -q "^VIOLATION" $out/check_$pid.txt && [ "$tier" = quick ]; then
-    # the flagged harnesses may belong to the thorough tier only (larger bounds, slow ones)
-    (cd $V && VERIF_ONLY="$hits" python3 check.py $pid --tier thorough > $out/check_${pid}_thorough.txt 2>$out/check_${pid}_thorough.err; echo "exit=$? (tier thorough, restricted to the harnesses the native sweep flagged: $hits)" >> $out/check_${pid}_thorough.txt)
-    if grep -q "^VIOLATION" $out/check_${pid}_thorough.txt; then cp $out/check_${pid}_thorough.txt $out/check_$pid.txt; fi
-  fi
-fi
-if [ -z "$hits" ] || { ! grep -q "^VIOLATION" $out/check_$pid.txt && grep -q "no obligation was generated" $out/check_$pid.txt; }; then
-  (cd $V && python3 check.py $pid --tier $tier > $out/check_$pid.txt 2>$out/check_$pid.err; echo "exit=$? (tier $tier, full check; native sweep flagged nothing the restricted runs could decide)" >> $out/check_$pid.txt)
-fi
-$if [ -n "$hits" ]; then
-  (cd $V && VERIF_ONLY="$hits" python3 check.py $pid --tier $tier > $out/check_$pid.txt 2>$out/check_$pid.err; echo "exit=$? (tier $tier, restricted to the harnesses the native sweep flagged: $hits)" >> $out/check_$pid.txt)
-  if ! grep -q "^VIOLATION" $out/check_$pid.txt && [ "$tier" = quick ]; then
-    # the flagged harnesses may belong to the thorough tier only (larger bounds, slow ones)
-    (cd $V && VERIF_ONLY="$hits" python3 check.py $pid --tier thorough > $out/check_${pid}_thorough.txt 2>$out/check_${pid}_thorough.err; echo "exit=$? (tier thorough, restricted to the harnesses the native sweep flagged: $hits)" >> $out/check_${pid}_thorough.txt)
-    if grep -q "^VIOLATION" $out/check_${pid}_thorough.txt; then cp $out/check_${pid}_thorough.txt $out/check_$pid.txt; fi
-  fi
-fi
-if [ -z "$hits" ] || { ! grep -q "^VIOLATION" $out/check_$pid.txt && grep -q "no obligation was generated" $out/check_$pid.txt; }; then
-  (cd $V && python3 check.py $pid --tier $tier > $out/check_$pid.txt 2>$out/check_$pid.err; echo "exit=$? (tier $tier, full check; native sweep flagged nothing the restricted runs could decide)" >> $out/check_$pid.txt)
-fi
-{if [ -n "$hits" ]; then
-  (cd $V && VERIF_ONLY="$hits" python3 check.py $pid --tier $tier > $out/check_$pid.txt 2>$out/check_$pid.err; echo "exit=$? (tier $tier, restricted to the harnesses the native sweep flagged: $hits)" >> $out/check_$pid.txt)
-  if ! grep -q "^VIOLATION" $out/check_$pid.txt && [ "$tier" = quick ]; then
-    # the flagged harnesses may belong to the thorough tier only (larger bounds, slow ones)
-    (cd $V && VERIF_ONLY="$hits" python3 check.py $pid --tier thorough > $out/check_${pid}_thorough.txt 2>$out/check_${pid}_thorough.err; echo "exit=$? (tier thorough, restricted to the harnesses the native sweep flagged: $hits)" >> $out/check_${pid}_thorough.txt)
-    if grep -q "^VIOLATION" $out/check_${pid}_thorough.txt; then cp $out/check_${pid}_thorough.txt $out/check_$pid.txt; fi
-  fi
-fi
-if [ -z "$hits" ] || { ! grep -q "^VIOLATION" $out/check_$pid.txt && grep -q "no obligation was generated" $out/check_$pid.txt; }; then
-  (cd $V && python3 check.py $pid --tier $tier > $out/check_$pid.txt 2>$out/check_$pid.err; echo "exit=$? (tier $tier, full check; native sweep flagged nothing the restricted runs could decide)" >> $out/check_$pid.txt)
-fi
-2if [ -n "$hits" ]; then
-  (cd $V && VERIF_ONLY="$hits" python3 check.py $pid --tier $tier > $out/check_$pid.txt 2>$out/check_$pid.err; echo "exit=$? (tier $tier, restricted to the harnesses the native sweep flagged: $hits)" >> $out/check_$pid.txt)
-  if ! grep -q "^VIOLATION" $out/check_$pid.txt && [ "$tier" = quick ]; then
-    # the flagged harnesses may belong to the thorough tier only (larger bounds, slow ones)
-    (cd $V && VERIF_ONLY="$hits" python3 check.py $pid --tier thorough > $out/check_${pid}_thorough.txt 2>$out/check_${pid}_thorough.err; echo "exit=$? (tier thorough, restricted to the harnesses the native sweep flagged: $hits)" >> $out/check_${pid}_thorough.txt)
-    if grep -q "^VIOLATION" $out/check_${pid}_thorough.txt; then cp $out/check_${pid}_thorough.txt $out/check_$pid.txt; fi
-  fi
-fi
-if [ -z "$hits" ] || { ! grep -q "^VIOLATION" $out/check_$pid.txt && grep -q "no obligation was generated" $out/check_$pid.txt; }; then
-  (cd $V && python3 check.py $pid --tier $tier > $out/check_$pid.txt 2>$out/check_$pid.err; echo "exit=$? (tier $tier, full check; native sweep flagged nothing the restricted runs could decide)" >> $out/check_$pid.txt)
-fi
-:if [ -n "$hits" ]; then
-  (cd $V && VERIF_ONLY="$hits" python3 check.py $pid --tier $tier > $out/check_$pid.txt 2>$out/check_$pid.err; echo "exit=$? (tier $tier, restricted to the harnesses the native sweep flagged: $hits)" >> $out/check_$pid.txt)
-  if ! grep -q "^VIOLATION" $out/check_$pid.txt && [ "$tier" = quick ]; then
-    # the flagged harnesses may belong to the thorough tier only (larger bounds, slow ones)
-    (cd $V && VERIF_ONLY="$hits" python3 check.py $pid --tier thorough > $out/check_${pid}_thorough.txt 2>$out/check_${pid}_thorough.err; echo "exit=$? (tier thorough, restricted to the harnesses the native sweep flagged: $hits)" >> $out/check_${pid}_thorough.txt)
-    if grep -q "^VIOLATION" $out/check_${pid}_thorough.txt; then cp $out/check_${pid}_thorough.txt $out/check_$pid.txt; fi
-  fi
-fi
-if [ -z "$hits" ] || { ! grep -q "^VIOLATION" $out/check_$pid.txt && grep -q "no obligation was generated" $out/check_$pid.txt; }; then
-  (cd $V && python3 check.py $pid --tier $tier > $out/check_$pid.txt 2>$out/check_$pid.err; echo "exit=$? (tier $tier, full check; native sweep flagged nothing the restricted runs could decide)" >> $out/check_$pid.txt)
-fi
--if [ -n "$hits" ]; then
-  (cd $V && VERIF_ONLY="$hits" python3 check.py $pid --tier $tier > $out/check_$pid.txt 2>$out/check_$pid.err; echo "exit=$? (tier $tier, restricted to the harnesses the native sweep flagged: $hits)" >> $out/check_$pid.txt)
-  if ! grep -q "^VIOLATION" $out/check_$pid.txt && [ "$tier" = quick ]; then
-    # the flagged harnesses may belong to the thorough tier only (larger bounds, slow ones)
-    (cd $V && VERIF_ONLY="$hits" python3 check.py $pid --tier thorough > $out/check_${pid}_thorough.txt 2>$out/check_${pid}_thorough.err; echo "exit=$? (tier thorough, restricted to the harnesses the native sweep flagged: $hits)" >> $out/check_${pid}_thorough.txt)
-    if grep -q "^VIOLATION" $out/check_${pid}_thorough.txt; then cp $out/check_${pid}_thorough.txt $out/check_$pid.txt; fi
-  fi
-fi
-if [ -z "$hits" ] || { ! grep -q "^VIOLATION" $out/check_$pid.txt && grep -q "no obligation was generated" $out/check_$pid.txt; }; then
-  (cd $V && python3 check.py $pid --tier $tier > $out/check_$pid.txt 2>$out/check_$pid.err; echo "exit=$? (tier $tier, full check; native sweep flagged nothing the restricted runs could decide)" >> $out/check_$pid.txt)
-fi
-qif [ -n "$hits" ]; then
-  (cd $V && VERIF_ONLY="$hits" python3 check.py $pid --tier $tier > $out/check_$pid.txt 2>$out/check_$pid.err; echo "exit=$? (tier $tier, restricted to the harnesses the native sweep flagged: $hits)" >> $out/check_$pid.txt)
-  if ! grep -q "^VIOLATION" $out/check_$pid.txt && [ "$tier" = quick ]; then
-    # the flagged harnesses may belong to the thorough tier only (larger bounds, slow ones)
-    (cd $V && VERIF_ONLY="$hits" python3 check.py $pid --tier thorough > $out/check_${pid}_thorough.txt 2>$out/check_${pid}_thorough.err; echo "exit=$? (tier thorough, restricted to the harnesses the native sweep flagged: $hits)" >> $out/check_${pid}_thorough.txt)
-    if grep -q "^VIOLATION" $out/check_${pid}_thorough.txt; then cp $out/check_${pid}_thorough.txt $out/check_$pid.txt; fi
-  fi
-fi
-if [ -z "$hits" ] || { ! grep -q "^VIOLATION" $out/check_$pid.txt && grep -q "no obligation was generated" $out/check_$pid.txt; }; then
-  (cd $V && python3 check.py $pid --tier $tier > $out/check_$pid.txt 2>$out/check_$pid.err; echo "exit=$? (tier $tier, full check; native sweep flagged nothing the restricted runs could decide)" >> $out/check_$pid.txt)
-fi
-uif [ -n "$hits" ]; then
-  (cd $V && VERIF_ONLY="$hits" python3 check.py $pid --tier $tier > $out/check_$pid.txt 2>$out/check_$pid.err; echo "exit=$? (tier $tier, restricted to the harnesses the native sweep flagged: $hits)" >> $out/check_$pid.txt)
-  if ! grep -q "^VIOLATION" $out/check_$pid.txt && [ "$tier" = quick ]; then
-    # the flagged harnesses may belong to the thorough tier only (larger bounds, slow ones)
-    (cd $V && VERIF_ONLY="$hits" python3 check.py $pid --tier thorough > $out/check_${pid}_thorough.txt 2>$out/check_${pid}_thorough.err; echo "exit=$? (tier thorough, restricted to the harnesses the native sweep flagged: $hits)" >> $out/check_${pid}_thorough.txt)
-    if grep -q "^VIOLATION" $out/check_${pid}_thorough.txt; then cp $out/check_${pid}_thorough.txt $out/check_$pid.txt; fi
-  fi
-fi
-if [ -z "$hits" ] || { ! grep -q "^VIOLATION" $out/check_$pid.txt && grep -q "no obligation was generated" $out/check_$pid.txt; }; then
-  (cd $V && python3 check.py $pid --tier $tier > $out/check_$pid.txt 2>$out/check_$pid.err; echo "exit=$? (tier $tier, full check; native sweep flagged nothing the restricted runs could decide)" >> $out/check_$pid.txt)
-fi
-iif [ -n "$hits" ]; then
-  (cd $V && VERIF_ONLY="$hits" python3 check.py $pid --tier $tier > $out/check_$pid.txt 2>$out/check_$pid.err; echo "exit=$? (tier $tier, restricted to the harnesses the native sweep flagged: $hits)" >> $out/check_$pid.txt)
-  if ! grep -q "^VIOLATION" $out/check_$pid.txt && [ "$tier" = quick ]; then
-    # the flagged harnesses may belong to the thorough tier only (larger bounds, slow ones)
-    (cd $V && VERIF_ONLY="$hits" python3 check.py $pid --tier thorough > $out/check_${pid}_thorough.txt 2>$out/check_${pid}_thorough.err; echo "exit=$? (tier thorough, restricted to the harnesses the native sweep flagged: $hits)" >> $out/check_${pid}_thorough.txt)
-    if grep -q "^VIOLATION" $out/check_${pid}_thorough.txt; then cp $out/check_${pid}_thorough.txt $out/check_$pid.txt; fi
-  fi
-fi
-if [ -z "$hits" ] || { ! grep -q "^VIOLATION" $out/check_$pid.txt && grep -q "no obligation was generated" $out/check_$pid.txt; }; then
-  (cd $V && python3 check.py $pid --tier $tier > $out/check_$pid.txt 2>$out/check_$pid.err; echo "exit=$? (tier $tier, full check; native sweep flagged nothing the restricted runs could decide)" >> $out/check_$pid.txt)
-fi
-cif [ -n "$hits" ]; then
-  (cd $V && VERIF_ONLY="$hits" python3 check.py $pid --tier $tier > $out/check_$pid.txt 2>$out/check_$pid.err; echo "exit=$? (tier $tier, restricted to the harnesses the native sweep flagged: $hits)" >> $out/check_$pid.txt)
-  if ! grep -q "^VIOLATION" $out/check_$pid.txt && [ "$tier" = quick ]; then
-    # the flagged harnesses may belong to the thorough tier only (larger bounds, slow ones)
-    (cd $V && VERIF_ONLY="$hits" python3 check.py $pid --tier thorough > $out/check_${pid}_thorough.txt 2>$out/check_${pid}_thorough.err; echo "exit=$? (tier thorough, restricted to the harnesses the native sweep flagged: $hits)" >> $out/check_${pid}_thorough.txt)
-    if grep -q "^VIOLATION" $out/check_${pid}_thorough.txt; then cp $out/check_${pid}_thorough.txt $out/check_$pid.txt; fi
-  fi
-fi
-if [ -z "$hits" ] || { ! grep -q "^VIOLATION" $out/check_$pid.txt && grep -q "no obligation was generated" $out/check_$pid.txt; }; then
-  (cd $V && python3 check.py $pid --tier $tier > $out/check_$pid.txt 2>$out/check_$pid.err; echo "exit=$? (tier $tier, full check; native sweep flagged nothing the restricted runs could decide)" >> $out/check_$pid.txt)
-fi
-kif [ -n "$hits" ]; then
-  (cd $V && VERIF_ONLY="$hits" python3 check.py $pid --tier $tier > $out/check_$pid.txt 2>$out/check_$pid.err; echo "exit=$? (tier $tier, restricted to the harnesses the native sweep flagged: $hits)" >> $out/check_$pid.txt)
-  if ! grep -q "^VIOLATION" $out/check_$pid.txt && [ "$tier" = quick ]; then
-    # the flagged harnesses may belong to the thorough tier only (larger bounds, slow ones)
-    (cd $V && VERIF_ONLY="$hits" python3 check.py $pid --tier thorough > $out/check_${pid}_thorough.txt 2>$out/check_${pid}_thorough.err; echo "exit=$? (tier thorough, restricted to the harnesses the native sweep flagged: $hits)" >> $out/check_${pid}_thorough.txt)
-    if grep -q "^VIOLATION" $out/check_${pid}_thorough.txt; then cp $out/check_${pid}_thorough.txt $out/check_$pid.txt; fi
-  fi
-fi
-if [ -z "$hits" ] || { ! grep -q "^VIOLATION" $out/check_$pid.txt && grep -q "no obligation was generated" $out/check_$pid.txt; }; then
-  (cd $V && python3 check.py $pid --tier $tier > $out/check_$pid.txt 2>$out/check_$pid.err; echo "exit=$? (tier $tier, full check; native sweep flagged nothing the restricted runs could decide)" >> $out/check_$pid.txt)
-fi
-}if [ -n "$hits" ]; then
-  (cd $V && VERIF_ONLY="$hits" python3 check.py $pid --tier $tier > $out/check_$pid.txt 2>$out/check_$pid.err; echo "exit=$? (tier $tier, restricted to the harnesses the native sweep flagged: $hits)" >> $out/check_$pid.txt)
-  if ! grep -q "^VIOLATION" $out/check_$pid.txt && [ "$tier" = quick ]; then
-    # the flagged harnesses may belong to the thorough tier only (larger bounds, slow ones)
-    (cd $V && VERIF_ONLY="$hits" python3 check.py $pid --tier thorough > $out/check_${pid}_thorough.txt 2>$out/check_${pid}_thorough.err; echo "exit=$? (tier thorough, restricted to the harnesses the native sweep flagged: $hits)" >> $out/check_${pid}_thorough.txt)
-    if grep -q "^VIOLATION" $out/check_${pid}_thorough.txt; then cp $out/check_${pid}_thorough.txt $out/check_$pid.txt; fi
-  fi
-fi
-if [ -z "$hits" ] || { ! grep -q "^VIOLATION" $out/check_$pid.txt && grep -q "no obligation was generated" $out/check_$pid.txt; }; then
-  (cd $V && python3 check.py $pid --tier $tier > $out/check_$pid.txt 2>$out/check_$pid.err; echo "exit=$? (tier $tier, full check; native sweep flagged nothing the restricted runs could decide)" >> $out/check_$pid.txt)
-fi
-
-if [ -n "$hits" ]; then
-  (cd $V && VERIF_ONLY="$hits" python3 check.py $pid --tier $tier > $out/check_$pid.txt 2>$out/check_$pid.err; echo "exit=$? (tier $tier, restricted to the harnesses the native sweep flagged: $hits)" >> $out/check_$pid.txt)
-  if ! grep -q "^VIOLATION" $out/check_$pid.txt && [ "$tier" = quick ]; then
-    # the flagged harnesses may belong to the thorough tier only (larger bounds, slow ones)
-    (cd $V && VERIF_ONLY="$hits" python3 check.py $pid --tier thorough > $out/check_${pid}_thorough.txt 2>$out/check_${pid}_thorough.err; echo "exit=$? (tier thorough, restricted to the harnesses the native sweep flagged: $hits)" >> $out/check_${pid}_thorough.txt)
-    if grep -q "^VIOLATION" $out/check_${pid}_thorough.txt; then cp $out/check_${pid}_thorough.txt $out/check_$pid.txt; fi
-  fi
-fi
-if [ -z "$hits" ] || { ! grep -q "^VIOLATION" $out/check_$pid.txt && grep -q "no obligation was generated" $out/check_$pid.txt; }; then
-  (cd $V && python3 check.py $pid --tier $tier > $out/check_$pid.txt 2>$out/check_$pid.err; echo "exit=$? (tier $tier, full check; native sweep flagged nothing the restricted runs could decide)" >> $out/check_$pid.txt)
-fi
-pif [ -n "$hits" ]; then
-  (cd $V && VERIF_ONLY="$hits" python3 check.py $pid --tier $tier > $out/check_$pid.txt 2>$out/check_$pid.err; echo "exit=$? (tier $tier, restricted to the harnesses the native sweep flagged: $hits)" >> $out/check_$pid.txt)
-  if ! grep -q "^VIOLATION" $out/check_$pid.txt && [ "$tier" = quick ]; then
-    # the flagged harnesses may belong to the thorough tier only (larger bounds, slow ones)
-    (cd $V && VERIF_ONLY="$hits" python3 check.py $pid --tier thorough > $out/check_${pid}_thorough.txt 2>$out/check_${pid}_thorough.err; echo "exit=$? (tier thorough, restricted to the harnesses the native sweep flagged: $hits)" >> $out/check_${pid}_thorough.txt)
-    if grep -q "^VIOLATION" $out/check_${pid}_thorough.txt; then cp $out/check_${pid}_thorough.txt $out/check_$pid.txt; fi
-  fi
-fi
-if [ -z "$hits" ] || { ! grep -q "^VIOLATION" $out/check_$pid.txt && grep -q "no obligation was generated" $out/check_$pid.txt; }; then
-  (cd $V && python3 check.py $pid --tier $tier > $out/check_$pid.txt 2>$out/check_$pid.err; echo "exit=$? (tier $tier, full check; native sweep flagged nothing the restricted runs could decide)" >> $out/check_$pid.txt)
-fi
-iif [ -n "$hits" ]; then
-  (cd $V && VERIF_ONLY="$hits" python3 check.py $pid --tier $tier > $out/check_$pid.txt 2>$out/check_$pid.err; echo "exit=$? (tier $tier, restricted to the harnesses the native sweep flagged: $hits)" >> $out/check_$pid.txt)
-  if ! grep -q "^VIOLATION" $out/check_$pid.txt && [ "$tier" = quick ]; then
-    # the flagged harnesses may belong to the thorough tier only (larger bounds, slow ones)
-    (cd $V && VERIF_ONLY="$hits" python3 check.py $pid --tier thorough > $out/check_${pid}_thorough.txt 2>$out/check_${pid}_thorough.err; echo "exit=$? (tier thorough, restricted to the harnesses the native sweep flagged: $hits)" >> $out/check_${pid}_thorough.txt)
-    if grep -q "^VIOLATION" $out/check_${pid}_thorough.txt; then cp $out/check_${pid}_thorough.txt $out/check_$pid.txt; fi
-  fi
-fi
-if [ -z "$hits" ] || { ! grep -q "^VIOLATION" $out/check_$pid.txt && grep -q "no obligation was generated" $out/check_$pid.txt; }; then
-  (cd $V && python3 check.py $pid --tier $tier > $out/check_$pid.txt 2>$out/check_$pid.err; echo "exit=$? (tier $tier, full check; native sweep flagged nothing the restricted runs could decide)" >> $out/check_$pid.txt)
-fi
-dif [ -n "$hits" ]; then
-  (cd $V && VERIF_ONLY="$hits" python3 check.py $pid --tier $tier > $out/check_$pid.txt 2>$out/check_$pid.err; echo "exit=$? (tier $tier, restricted to the harnesses the native sweep flagged: $hits)" >> $out/check_$pid.txt)
-  if ! grep -q "^VIOLATION" $out/check_$pid.txt && [ "$tier" = quick ]; then
-    # the flagged harnesses may belong to the thorough tier only (larger bounds, slow ones)
-    (cd $V && VERIF_ONLY="$hits" python3 check.py $pid --tier thorough > $out/check_${pid}_thorough.txt 2>$out/check_${pid}_thorough.err; echo "exit=$? (tier thorough, restricted to the harnesses the native sweep flagged: $hits)" >> $out/check_${pid}_thorough.txt)
-    if grep -q "^VIOLATION" $out/check_${pid}_thorough.txt; then cp $out/check_${pid}_thorough.txt $out/check_$pid.txt; fi
-  fi
-fi
-if [ -z "$hits" ] || { ! grep -q "^VIOLATION" $out/check_$pid.txt && grep -q "no obligation was generated" $out/check_$pid.txt; }; then
-  (cd $V && python3 check.py $pid --tier $tier > $out/check_$pid.txt 2>$out/check_$pid.err; echo "exit=$? (tier $tier, full check; native sweep flagged nothing the restricted runs could decide)" >> $out/check_$pid.txt)
-fi
-=if [ -n "$hits" ]; then
-  (cd $V && VERIF_ONLY="$hits" python3 check.py $pid --tier $tier > $out/check_$pid.txt 2>$out/check_$pid.err; echo "exit=$? (tier $tier, restricted to the harnesses the native sweep flagged: $hits)" >> $out/check_$pid.txt)
-  if ! grep -q "^VIOLATION" $out/check_$pid.txt && [ "$tier" = quick ]; then
-    # the flagged harnesses may belong to the thorough tier only (larger bounds, slow ones)
-    (cd $V && VERIF_ONLY="$hits" python3 check.py $pid --tier thorough > $out/check_${pid}_thorough.txt 2>$out/check_${pid}_thorough.err; echo "exit=$? (tier thorough, restricted to the harnesses the native sweep flagged: $hits)" >> $out/check_${pid}_thorough.txt)
-    if grep -q "^VIOLATION" $out/check_${pid}_thorough.txt; then cp $out/check_${pid}_thorough.txt $out/check_$pid.txt; fi
-  fi
-fi
-if [ -z "$hits" ] || { ! grep -q "^VIOLATION" $out/check_$pid.txt && grep -q "no obligation was generated" $out/check_$pid.txt; }; then
-  (cd $V && python3 check.py $pid --tier $tier > $out/check_$pid.txt 2>$out/check_$pid.err; echo "exit=$? (tier $tier, full check; native sweep flagged nothing the restricted runs could decide)" >> $out/check_$pid.txt)
-fi
-$if [ -n "$hits" ]; then
-  (cd $V && VERIF_ONLY="$hits" python3 check.py $pid --tier $tier > $out/check_$pid.txt 2>$out/check_$pid.err; echo "exit=$? (tier $tier, restricted to the harnesses the native sweep flagged: $hits)" >> $out/check_$pid.txt)
-  if ! grep -q "^VIOLATION" $out/check_$pid.txt && [ "$tier" = quick ]; then
-    # the flagged harnesses may belong to the thorough tier only (larger bounds, slow ones)
-    (cd $V && VERIF_ONLY="$hits" python3 check.py $pid --tier thorough > $out/check_${pid}_thorough.txt 2>$out/check_${pid}_thorough.err; echo "exit=$? (tier thorough, restricted to the harnesses the native sweep flagged: $hits)" >> $out/check_${pid}_thorough.txt)
-    if grep -q "^VIOLATION" $out/check_${pid}_thorough.txt; then cp $out/check_${pid}_thorough.txt $out/check_$pid.txt; fi
-  fi
-fi
-if [ -z "$hits" ] || { ! grep -q "^VIOLATION" $out/check_$pid.txt && grep -q "no obligation was generated" $out/check_$pid.txt; }; then
-  (cd $V && python3 check.py $pid --tier $tier > $out/check_$pid.txt 2>$out/check_$pid.err; echo "exit=$? (tier $tier, full check; native sweep flagged nothing the restricted runs could decide)" >> $out/check_$pid.txt)
-fi
-{if [ -n "$hits" ]; then
-  (cd $V && VERIF_ONLY="$hits" python3 check.py $pid --tier $tier > $out/check_$pid.txt 2>$out/check_$pid.err; echo "exit=$? (tier $tier, restricted to the harnesses the native sweep flagged: $hits)" >> $out/check_$pid.txt)
-  if ! grep -q "^VIOLATION" $out/check_$pid.txt && [ "$tier" = quick ]; then
-    # the flagged harnesses may belong to the thorough tier only (larger bounds, slow ones)
-    (cd $V && VERIF_ONLY="$hits" python3 check.py $pid --tier thorough > $out/check_${pid}_thorough.txt 2>$out/check_${pid}_thorough.err; echo "exit=$? (tier thorough, restricted to the harnesses the native sweep flagged: $hits)" >> $out/check_${pid}_thorough.txt)
-    if grep -q "^VIOLATION" $out/check_${pid}_thorough.txt; then cp $out/check_${pid}_thorough.txt $out/check_$pid.txt; fi
-  fi
-fi
-if [ -z "$hits" ] || { ! grep -q "^VIOLATION" $out/check_$pid.txt && grep -q "no obligation was generated" $out/check_$pid.txt; }; then
-  (cd $V && python3 check.py $pid --tier $tier > $out/check_$pid.txt 2>$out/check_$pid.err; echo "exit=$? (tier $tier, full check; native sweep flagged nothing the restricted runs could decide)" >> $out/check_$pid.txt)
-fi
-nif [ -n "$hits" ]; then
-  (cd $V && VERIF_ONLY="$hits" python3 check.py $pid --tier $tier > $out/check_$pid.txt 2>$out/check_$pid.err; echo "exit=$? (tier $tier, restricted to the harnesses the native sweep flagged: $hits)" >> $out/check_$pid.txt)
-  if ! grep -q "^VIOLATION" $out/check_$pid.txt && [ "$tier" = quick ]; then
-    # the flagged harnesses may belong to the thorough tier only (larger bounds, slow ones)
-    (cd $V && VERIF_ONLY="$hits" python3 check.py $pid --tier thorough > $out/check_${pid}_thorough.txt 2>$out/check_${pid}_thorough.err; echo "exit=$? (tier thorough, restricted to the harnesses the native sweep flagged: $hits)" >> $out/check_${pid}_thorough.txt)
-    if grep -q "^VIOLATION" $out/check_${pid}_thorough.txt; then cp $out/check_${pid}_thorough.txt $out/check_$pid.txt; fi
-  fi
-fi
-if [ -z "$hits" ] || { ! grep -q "^VIOLATION" $out/check_$pid.txt && grep -q "no obligation was generated" $out/check_$pid.txt; }; then
-  (cd $V && python3 check.py $pid --tier $tier > $out/check_$pid.txt 2>$out/check_$pid.err; echo "exit=$? (tier $tier, full check; native sweep flagged nothing the restricted runs could decide)" >> $out/check_$pid.txt)
-fi
-aif [ -n "$hits" ]; then
-  (cd $V && VERIF_ONLY="$hits" python3 check.py $pid --tier $tier > $out/check_$pid.txt 2>$out/check_$pid.err; echo "exit=$? (tier $tier, restricted to the harnesses the native sweep flagged: $hits)" >> $out/check_$pid.txt)
-  if ! grep -q "^VIOLATION" $out/check_$pid.txt && [ "$tier" = quick ]; then
-    # the flagged harnesses may belong to the thorough tier only (larger bounds, slow ones)
-    (cd $V && VERIF_ONLY="$hits" python3 check.py $pid --tier thorough > $out/check_${pid}_thorough.txt 2>$out/check_${pid}_thorough.err; echo "exit=$? (tier thorough, restricted to the harnesses the native sweep flagged: $hits)" >> $out/check_${pid}_thorough.txt)
-    if grep -q "^VIOLATION" $out/check_${pid}_thorough.txt; then cp $out/check_${pid}_thorough.txt $out/check_$pid.txt; fi
-  fi
-fi
-if [ -z "$hits" ] || { ! grep -q "^VIOLATION" $out/check_$pid.txt && grep -q "no obligation was generated" $out/check_$pid.txt; }; then
-  (cd $V && python3 check.py $pid --tier $tier > $out/check_$pid.txt 2>$out/check_$pid.err; echo "exit=$? (tier $tier, full check; native sweep flagged nothing the restricted runs could decide)" >> $out/check_$pid.txt)
-fi
-mif [ -n "$hits" ]; then
-  (cd $V && VERIF_ONLY="$hits" python3 check.py $pid --tier $tier > $out/check_$pid.txt 2>$out/check_$pid.err; echo "exit=$? (tier $tier, restricted to the harnesses the native sweep flagged: $hits)" >> $out/check_$pid.txt)
-  if ! grep -q "^VIOLATION" $out/check_$pid.txt && [ "$tier" = quick ]; then
-    # the flagged harnesses may belong to the thorough tier only (larger bounds, slow ones)
-    (cd $V && VERIF_ONLY="$hits" python3 check.py $pid --tier thorough > $out/check_${pid}_thorough.txt 2>$out/check_${pid}_thorough.err; echo "exit=$? (tier thorough, restricted to the harnesses the native sweep flagged: $hits)" >> $out/check_${pid}_thorough.txt)
-    if grep -q "^VIOLATION" $out/check_${pid}_thorough.txt; then cp $out/check_${pid}_thorough.txt $out/check_$pid.txt; fi
-  fi
-fi
-if [ -z "$hits" ] || { ! grep -q "^VIOLATION" $out/check_$pid.txt && grep -q "no obligation was generated" $out/check_$pid.txt; }; then
-  (cd $V && python3 check.py $pid --tier $tier > $out/check_$pid.txt 2>$out/check_$pid.err; echo "exit=$? (tier $tier, full check; native sweep flagged nothing the restricted runs could decide)" >> $out/check_$pid.txt)
-fi
-eif [ -n "$hits" ]; then
-  (cd $V && VERIF_ONLY="$hits" python3 check.py $pid --tier $tier > $out/check_$pid.txt 2>$out/check_$pid.err; echo "exit=$? (tier $tier, restricted to the harnesses the native sweep flagged: $hits)" >> $out/check_$pid.txt)
-  if ! grep -q "^VIOLATION" $out/check_$pid.txt && [ "$tier" = quick ]; then
-    # the flagged harnesses may belong to the thorough tier only (larger bounds, slow ones)
-    (cd $V && VERIF_ONLY="$hits" python3 check.py $pid --tier thorough > $out/check_${pid}_thorough.txt 2>$out/check_${pid}_thorough.err; echo "exit=$? (tier thorough, restricted to the harnesses the native sweep flagged: $hits)" >> $out/check_${pid}_thorough.txt)
-    if grep -q "^VIOLATION" $out/check_${pid}_thorough.txt; then cp $out/check_${pid}_thorough.txt $out/check_$pid.txt; fi
-  fi
-fi
-if [ -z "$hits" ] || { ! grep -q "^VIOLATION" $out/check_$pid.txt && grep -q "no obligation was generated" $out/check_$pid.txt; }; then
-  (cd $V && python3 check.py $pid --tier $tier > $out/check_$pid.txt 2>$out/check_$pid.err; echo "exit=$? (tier $tier, full check; native sweep flagged nothing the restricted runs could decide)" >> $out/check_$pid.txt)
-fi
-%if [ -n "$hits" ]; then
-  (cd $V && VERIF_ONLY="$hits" python3 check.py $pid --tier $tier > $out/check_$pid.txt 2>$out/check_$pid.err; echo "exit=$? (tier $tier, restricted to the harnesses the native sweep flagged: $hits)" >> $out/check_$pid.txt)
-  if ! grep -q "^VIOLATION" $out/check_$pid.txt && [ "$tier" = quick ]; then
-    # the flagged harnesses may belong to the thorough tier only (larger bounds, slow ones)
-    (cd $V && VERIF_ONLY="$hits" python3 check.py $pid --tier thorough > $out/check_${pid}_thorough.txt 2>$out/check_${pid}_thorough.err; echo "exit=$? (tier thorough, restricted to the harnesses the native sweep flagged: $hits)" >> $out/check_${pid}_thorough.txt)
-    if grep -q "^VIOLATION" $out/check_${pid}_thorough.txt; then cp $out/check_${pid}_thorough.txt $out/check_$pid.txt; fi
-  fi
-fi
-if [ -z "$hits" ] || { ! grep -q "^VIOLATION" $out/check_$pid.txt && grep -q "no obligation was generated" $out/check_$pid.txt; }; then
-  (cd $V && python3 check.py $pid --tier $tier > $out/check_$pid.txt 2>$out/check_$pid.err; echo "exit=$? (tier $tier, full check; native sweep flagged nothing the restricted runs could decide)" >> $out/check_$pid.txt)
-fi
-%if [ -n "$hits" ]; then
-  (cd $V && VERIF_ONLY="$hits" python3 check.py $pid --tier $tier > $out/check_$pid.txt 2>$out/check_$pid.err; echo "exit=$? (tier $tier, restricted to the harnesses the native sweep flagged: $hits)" >> $out/check_$pid.txt)
-  if ! grep -q "^VIOLATION" $out/check_$pid.txt && [ "$tier" = quick ]; then
-    # the flagged harnesses may belong to the thorough tier only (larger bounds, slow ones)
-    (cd $V && VERIF_ONLY="$hits" python3 check.py $pid --tier thorough > $out/check_${pid}_thorough.txt 2>$out/check_${pid}_thorough.err; echo "exit=$? (tier thorough, restricted to the harnesses the native sweep flagged: $hits)" >> $out/check_${pid}_thorough.txt)
-    if grep -q "^VIOLATION" $out/check_${pid}_thorough.txt; then cp $out/check_${pid}_thorough.txt $out/check_$pid.txt; fi
-  fi
-fi
-if [ -z "$hits" ] || { ! grep -q "^VIOLATION" $out/check_$pid.txt && grep -q "no obligation was generated" $out/check_$pid.txt; }; then
-  (cd $V && python3 check.py $pid --tier $tier > $out/check_$pid.txt 2>$out/check_$pid.err; echo "exit=$? (tier $tier, full check; native sweep flagged nothing the restricted runs could decide)" >> $out/check_$pid.txt)
-fi
--if [ -n "$hits" ]; then
-  (cd $V && VERIF_ONLY="$hits" python3 check.py $pid --tier $tier > $out/check_$pid.txt 2>$out/check_$pid.err; echo "exit=$? (tier $tier, restricted to the harnesses the native sweep flagged: $hits)" >> $out/check_$pid.txt)
-  if ! grep -q "^VIOLATION" $out/check_$pid.txt && [ "$tier" = quick ]; then
-    # the flagged harnesses may belong to the thorough tier only (larger bounds, slow ones)
-    (cd $V && VERIF_ONLY="$hits" python3 check.py $pid --tier thorough > $out/check_${pid}_thorough.txt 2>$out/check_${pid}_thorough.err; echo "exit=$? (tier thorough, restricted to the harnesses the native sweep flagged: $hits)" >> $out/check_${pid}_thorough.txt)
-    if grep -q "^VIOLATION" $out/check_${pid}_thorough.txt; then cp $out/check_${pid}_thorough.txt $out/check_$pid.txt; fi
-  fi
-fi
-if [ -z "$hits" ] || { ! grep -q "^VIOLATION" $out/check_$pid.txt && grep -q "no obligation was generated" $out/check_$pid.txt; }; then
-  (cd $V && python3 check.py $pid --tier $tier > $out/check_$pid.txt 2>$out/check_$pid.err; echo "exit=$? (tier $tier, full check; native sweep flagged nothing the restricted runs could decide)" >> $out/check_$pid.txt)
-fi
-*if [ -n "$hits" ]; then
-  (cd $V && VERIF_ONLY="$hits" python3 check.py $pid --tier $tier > $out/check_$pid.txt 2>$out/check_$pid.err; echo "exit=$? (tier $tier, restricted to the harnesses the native sweep flagged: $hits)" >> $out/check_$pid.txt)
-  if ! grep -q "^VIOLATION" $out/check_$pid.txt && [ "$tier" = quick ]; then
-    # the flagged harnesses may belong to the thorough tier only (larger bounds, slow ones)
-    (cd $V && VERIF_ONLY="$hits" python3 check.py $pid --tier thorough > $out/check_${pid}_thorough.txt 2>$out/check_${pid}_thorough.err; echo "exit=$? (tier thorough, restricted to the harnesses the native sweep flagged: $hits)" >> $out/check_${pid}_thorough.txt)
-    if grep -q "^VIOLATION" $out/check_${pid}_thorough.txt; then cp $out/check_${pid}_thorough.txt $out/check_$pid.txt; fi
-  fi
-fi
-if [ -z "$hits" ] || { ! grep -q "^VIOLATION" $out/check_$pid.txt && grep -q "no obligation was generated" $out/check_$pid.txt; }; then
-  (cd $V && python3 check.py $pid --tier $tier > $out/check_$pid.txt 2>$out/check_$pid.err; echo "exit=$? (tier $tier, full check; native sweep flagged nothing the restricted runs could decide)" >> $out/check_$pid.txt)
-fi
-}if [ -n "$hits" ]; then
-  (cd $V && VERIF_ONLY="$hits" python3 check.py $pid --tier $tier > $out/check_$pid.txt 2>$out/check_$pid.err; echo "exit=$? (tier $tier, restricted to the harnesses the native sweep flagged: $hits)" >> $out/check_$pid.txt)
-  if ! grep -q "^VIOLATION" $out/check_$pid.txt && [ "$tier" = quick ]; then
-    # the flagged harnesses may belong to the thorough tier only (larger bounds, slow ones)
-    (cd $V && VERIF_ONLY="$hits" python3 check.py $pid --tier thorough > $out/check_${pid}_thorough.txt 2>$out/check_${pid}_thorough.err; echo "exit=$? (tier thorough, restricted to the harnesses the native sweep flagged: $hits)" >> $out/check_${pid}_thorough.txt)
-    if grep -q "^VIOLATION" $out/check_${pid}_thorough.txt; then cp $out/check_${pid}_thorough.txt $out/check_$pid.txt; fi
-  fi
-fi
-if [ -z "$hits" ] || { ! grep -q "^VIOLATION" $out/check_$pid.txt && grep -q "no obligation was generated" $out/check_$pid.txt; }; then
-  (cd $V && python3 check.py $pid --tier $tier > $out/check_$pid.txt 2>$out/check_$pid.err; echo "exit=$? (tier $tier, full check; native sweep flagged nothing the restricted runs could decide)" >> $out/check_$pid.txt)
-fi
-
-if [ -n "$hits" ]; then
-  (cd $V && VERIF_ONLY="$hits" python3 check.py $pid --tier $tier > $out/check_$pid.txt 2>$out/check_$pid.err; echo "exit=$? (tier $tier, restricted to the harnesses the native sweep flagged: $hits)" >> $out/check_$pid.txt)
-  if ! grep -q "^VIOLATION" $out/check_$pid.txt && [ "$tier" = quick ]; then
-    # the flagged harnesses may belong to the thorough tier only (larger bounds, slow ones)
-    (cd $V && VERIF_ONLY="$hits" python3 check.py $pid --tier thorough > $out/check_${pid}_thorough.txt 2>$out/check_${pid}_thorough.err; echo "exit=$? (tier thorough, restricted to the harnesses the native sweep flagged: $hits)" >> $out/check_${pid}_thorough.txt)
-    if grep -q "^VIOLATION" $out/check_${pid}_thorough.txt; then cp $out/check_${pid}_thorough.txt $out/check_$pid.txt; fi
-  fi
-fi
-if [ -z "$hits" ] || { ! grep -q "^VIOLATION" $out/check_$pid.txt && grep -q "no obligation was generated" $out/check_$pid.txt; }; then
-  (cd $V && python3 check.py $pid --tier $tier > $out/check_$pid.txt 2>$out/check_$pid.err; echo "exit=$? (tier $tier, full check; native sweep flagged nothing the restricted runs could decide)" >> $out/check_$pid.txt)
-fi
-bif [ -n "$hits" ]; then
-  (cd $V && VERIF_ONLY="$hits" python3 check.py $pid --tier $tier > $out/check_$pid.txt 2>$out/check_$pid.err; echo "exit=$? (tier $tier, restricted to the harnesses the native sweep flagged: $hits)" >> $out/check_$pid.txt)
-  if ! grep -q "^VIOLATION" $out/check_$pid.txt && [ "$tier" = quick ]; then
-    # the flagged harnesses may belong to the thorough tier only (larger bounds, slow ones)
-    (cd $V && VERIF_ONLY="$hits" python3 check.py $pid --tier thorough > $out/check_${pid}_thorough.txt 2>$out/check_${pid}_thorough.err; echo "exit=$? (tier thorough, restricted to the harnesses the native sweep flagged: $hits)" >> $out/check_${pid}_thorough.txt)
-    if grep -q "^VIOLATION" $out/check_${pid}_thorough.txt; then cp $out/check_${pid}_thorough.txt $out/check_$pid.txt; fi
-  fi
-fi
-if [ -z "$hits" ] || { ! grep -q "^VIOLATION" $out/check_$pid.txt && grep -q "no obligation was generated" $out/check_$pid.txt; }; then
-  (cd $V && python3 check.py $pid --tier $tier > $out/check_$pid.txt 2>$out/check_$pid.err; echo "exit=$? (tier $tier, full check; native sweep flagged nothing the restricted runs could decide)" >> $out/check_$pid.txt)
-fi
-aif [ -n "$hits" ]; then
-  (cd $V && VERIF_ONLY="$hits" python3 check.py $pid --tier $tier > $out/check_$pid.txt 2>$out/check_$pid.err; echo "exit=$? (tier $tier, restricted to the harnesses the native sweep flagged: $hits)" >> $out/check_$pid.txt)
-  if ! grep -q "^VIOLATION" $out/check_$pid.txt && [ "$tier" = quick ]; then
-    # the flagged harnesses may belong to the thorough tier only (larger bounds, slow ones)
-    (cd $V && VERIF_ONLY="$hits" python3 check.py $pid --tier thorough > $out/check_${pid}_thorough.txt 2>$out/check_${pid}_thorough.err; echo "exit=$? (tier thorough, restricted to the harnesses the native sweep flagged: $hits)" >> $out/check_${pid}_thorough.txt)
-    if grep -q "^VIOLATION" $out/check_${pid}_thorough.txt; then cp $out/check_${pid}_thorough.txt $out/check_$pid.txt; fi
-  fi
-fi
-if [ -z "$hits" ] || { ! grep -q "^VIOLATION" $out/check_$pid.txt && grep -q "no obligation was generated" $out/check_$pid.txt; }; then
-  (cd $V && python3 check.py $pid --tier $tier > $out/check_$pid.txt 2>$out/check_$pid.err; echo "exit=$? (tier $tier, full check; native sweep flagged nothing the restricted runs could decide)" >> $out/check_$pid.txt)
-fi
-sif [ -n "$hits" ]; then
-  (cd $V && VERIF_ONLY="$hits" python3 check.py $pid --tier $tier > $out/check_$pid.txt 2>$out/check_$pid.err; echo "exit=$? (tier $tier, restricted to the harnesses the native sweep flagged: $hits)" >> $out/check_$pid.txt)
-  if ! grep -q "^VIOLATION" $out/check_$pid.txt && [ "$tier" = quick ]; then
-    # the flagged harnesses may belong to the thorough tier only (larger bounds, slow ones)
-    (cd $V && VERIF_ONLY="$hits" python3 check.py $pid --tier thorough > $out/check_${pid}_thorough.txt 2>$out/check_${pid}_thorough.err; echo "exit=$? (tier thorough, restricted to the harnesses the native sweep flagged: $hits)" >> $out/check_${pid}_thorough.txt)
-    if grep -q "^VIOLATION" $out/check_${pid}_thorough.txt; then cp $out/check_${pid}_thorough.txt $out/check_$pid.txt; fi
-  fi
-fi
-if [ -z "$hits" ] || { ! grep -q "^VIOLATION" $out/check_$pid.txt && grep -q "no obligation was generated" $out/check_$pid.txt; }; then
-  (cd $V && python3 check.py $pid --tier $tier > $out/check_$pid.txt 2>$out/check_$pid.err; echo "exit=$? (tier $tier, full check; native sweep flagged nothing the restricted runs could decide)" >> $out/check_$pid.txt)
-fi
-eif [ -n "$hits" ]; then
-  (cd $V && VERIF_ONLY="$hits" python3 check.py $pid --tier $tier > $out/check_$pid.txt 2>$out/check_$pid.err; echo "exit=$? (tier $tier, restricted to the harnesses the native sweep flagged: $hits)" >> $out/check_$pid.txt)
-  if ! grep -q "^VIOLATION" $out/check_$pid.txt && [ "$tier" = quick ]; then
-    # the flagged harnesses may belong to the thorough tier only (larger bounds, slow ones)
-    (cd $V && VERIF_ONLY="$hits" python3 check.py $pid --tier thorough > $out/check_${pid}_thorough.txt 2>$out/check_${pid}_thorough.err; echo "exit=$? (tier thorough, restricted to the harnesses the native sweep flagged: $hits)" >> $out/check_${pid}_thorough.txt)
-    if grep -q "^VIOLATION" $out/check_${pid}_thorough.txt; then cp $out/check_${pid}_thorough.txt $out/check_$pid.txt; fi
-  fi
-fi
-if [ -z "$hits" ] || { ! grep -q "^VIOLATION" $out/check_$pid.txt && grep -q "no obligation was generated" $out/check_$pid.txt; }; then
-  (cd $V && python3 check.py $pid --tier $tier > $out/check_$pid.txt 2>$out/check_$pid.err; echo "exit=$? (tier $tier, full check; native sweep flagged nothing the restricted runs could decide)" >> $out/check_$pid.txt)
-fi
-=if [ -n "$hits" ]; then
-  (cd $V && VERIF_ONLY="$hits" python3 check.py $pid --tier $tier > $out/check_$pid.txt 2>$out/check_$pid.err; echo "exit=$? (tier $tier, restricted to the harnesses the native sweep flagged: $hits)" >> $out/check_$pid.txt)
-  if ! grep -q "^VIOLATION" $out/check_$pid.txt && [ "$tier" = quick ]; then
-    # the flagged harnesses may belong to the thorough tier only (larger bounds, slow ones)
-    (cd $V && VERIF_ONLY="$hits" python3 check.py $pid --tier thorough > $out/check_${pid}_thorough.txt 2>$out/check_${pid}_thorough.err; echo "exit=$? (tier thorough, restricted to the harnesses the native sweep flagged: $hits)" >> $out/check_${pid}_thorough.txt)
-    if grep -q "^VIOLATION" $out/check_${pid}_thorough.txt; then cp $out/check_${pid}_thorough.txt $out/check_$pid.txt; fi
-  fi
-fi
-if [ -z "$hits" ] || { ! grep -q "^VIOLATION" $out/check_$pid.txt && grep -q "no obligation was generated" $out/check_$pid.txt; }; then
-  (cd $V && python3 check.py $pid --tier $tier > $out/check_$pid.txt 2>$out/check_$pid.err; echo "exit=$? (tier $tier, full check; native sweep flagged nothing the restricted runs could decide)" >> $out/check_$pid.txt)
-fi
-$if [ -n "$hits" ]; then
-  (cd $V && VERIF_ONLY="$hits" python3 check.py $pid --tier $tier > $out/check_$pid.txt 2>$out/check_$pid.err; echo "exit=$? (tier $tier, restricted to the harnesses the native sweep flagged: $hits)" >> $out/check_$pid.txt)
-  if ! grep -q "^VIOLATION" $out/check_$pid.txt && [ "$tier" = quick ]; then
-    # the flagged harnesses may belong to the thorough tier only (larger bounds, slow ones)
-    (cd $V && VERIF_ONLY="$hits" python3 check.py $pid --tier thorough > $out/check_${pid}_thorough.txt 2>$out/check_${pid}_thorough.err; echo "exit=$? (tier thorough, restricted to the harnesses the native sweep flagged: $hits)" >> $out/check_${pid}_thorough.txt)
-    if grep -q "^VIOLATION" $out/check_${pid}_thorough.txt; then cp $out/check_${pid}_thorough.txt $out/check_$pid.txt; fi
-  fi
-fi
-if [ -z "$hits" ] || { ! grep -q "^VIOLATION" $out/check_$pid.txt && grep -q "no obligation was generated" $out/check_$pid.txt; }; then
-  (cd $V && python3 check.py $pid --tier $tier > $out/check_$pid.txt 2>$out/check_$pid.err; echo "exit=$? (tier $tier, full check; native sweep flagged nothing the restricted runs could decide)" >> $out/check_$pid.txt)
-fi
-{if [ -n "$hits" ]; then
-  (cd $V && VERIF_ONLY="$hits" python3 check.py $pid --tier $tier > $out/check_$pid.txt 2>$out/check_$pid.err; echo "exit=$? (tier $tier, restricted to the harnesses the native sweep flagged: $hits)" >> $out/check_$pid.txt)
-  if ! grep -q "^VIOLATION" $out/check_$pid.txt && [ "$tier" = quick ]; then
-    # the flagged harnesses may belong to the thorough tier only (larger bounds, slow ones)
-    (cd $V && VERIF_ONLY="$hits" python3 check.py $pid --tier thorough > $out/check_${pid}_thorough.txt 2>$out/check_${pid}_thorough.err; echo "exit=$? (tier thorough, restricted to the harnesses the native sweep flagged: $hits)" >> $out/check_${pid}_thorough.txt)
-    if grep -q "^VIOLATION" $out/check_${pid}_thorough.txt; then cp $out/check_${pid}_thorough.txt $out/check_$pid.txt; fi
-  fi
-fi
-if [ -z "$hits" ] || { ! grep -q "^VIOLATION" $out/check_$pid.txt && grep -q "no obligation was generated" $out/check_$pid.txt; }; then
-  (cd $V && python3 check.py $pid --tier $tier > $out/check_$pid.txt 2>$out/check_$pid.err; echo "exit=$? (tier $tier, full check; native sweep flagged nothing the restricted runs could decide)" >> $out/check_$pid.txt)
-fi
-Vif [ -n "$hits" ]; then
-  (cd $V && VERIF_ONLY="$hits" python3 check.py $pid --tier $tier > $out/check_$pid.txt 2>$out/check_$pid.err; echo "exit=$? (tier $tier, restricted to the harnesses the native sweep flagged: $hits)" >> $out/check_$pid.txt)
-  if ! grep -q "^VIOLATION" $out/check_$pid.txt && [ "$tier" = quick ]; then
-    # the flagged harnesses may belong to the thorough tier only (larger bounds, slow ones)
-    (cd $V && VERIF_ONLY="$hits" python3 check.py $pid --tier thorough > $out/check_${pid}_thorough.txt 2>$out/check_${pid}_thorough.err; echo "exit=$? (tier thorough, restricted to the harnesses the native sweep flagged: $hits)" >> $out/check_${pid}_thorough.txt)
-    if grep -q "^VIOLATION" $out/check_${pid}_thorough.txt; then cp $out/check_${pid}_thorough.txt $out/check_$pid.txt; fi
-  fi
-fi
-if [ -z "$hits" ] || { ! grep -q "^VIOLATION" $out/check_$pid.txt && grep -q "no obligation was generated" $out/check_$pid.txt; }; then
-  (cd $V && python3 check.py $pid --tier $tier > $out/check_$pid.txt 2>$out/check_$pid.err; echo "exit=$? (tier $tier, full check; native sweep flagged nothing the restricted runs could decide)" >> $out/check_$pid.txt)
-fi
-Pif [ -n "$hits" ]; then
-  (cd $V && VERIF_ONLY="$hits" python3 check.py $pid --tier $tier > $out/check_$pid.txt 2>$out/check_$pid.err; echo "exit=$? (tier $tier, restricted to the harnesses the native sweep flagged: $hits)" >> $out/check_$pid.txt)
-  if ! grep -q "^VIOLATION" $out/check_$pid.txt && [ "$tier" = quick ]; then
-    # the flagged harnesses may belong to the thorough tier only (larger bounds, slow ones)
-    (cd $V && VERIF_ONLY="$hits" python3 check.py $pid --tier thorough > $out/check_${pid}_thorough.txt 2>$out/check_${pid}_thorough.err; echo "exit=$? (tier thorough, restricted to the harnesses the native sweep flagged: $hits)" >> $out/check_${pid}_thorough.txt)
-    if grep -q "^VIOLATION" $out/check_${pid}_thorough.txt; then cp $out/check_${pid}_thorough.txt $out/check_$pid.txt; fi
-  fi
-fi
-if [ -z "$hits" ] || { ! grep -q "^VIOLATION" $out/check_$pid.txt && grep -q "no obligation was generated" $out/check_$pid.txt; }; then
-  (cd $V && python3 check.py $pid --tier $tier > $out/check_$pid.txt 2>$out/check_$pid.err; echo "exit=$? (tier $tier, full check; native sweep flagged nothing the restricted runs could decide)" >> $out/check_$pid.txt)
-fi
-_if [ -n "$hits" ]; then
-  (cd $V && VERIF_ONLY="$hits" python3 check.py $pid --tier $tier > $out/check_$pid.txt 2>$out/check_$pid.err; echo "exit=$? (tier $tier, restricted to the harnesses the native sweep flagged: $hits)" >> $out/check_$pid.txt)
-  if ! grep -q "^VIOLATION" $out/check_$pid.txt && [ "$tier" = quick ]; then
-    # the flagged harnesses may belong to the thorough tier only (larger bounds, slow ones)
-    (cd $V && VERIF_ONLY="$hits" python3 check.py $pid --tier thorough > $out/check_${pid}_thorough.txt 2>$out/check_${pid}_thorough.err; echo "exit=$? (tier thorough, restricted to the harnesses the native sweep flagged: $hits)" >> $out/check_${pid}_thorough.txt)
-    if grep -q "^VIOLATION" $out/check_${pid}_thorough.txt; then cp $out/check_${pid}_thorough.txt $out/check_$pid.txt; fi
-  fi
-fi
-if [ -z "$hits" ] || { ! grep -q "^VIOLATION" $out/check_$pid.txt && grep -q "no obligation was generated" $out/check_$pid.txt; }; then
-  (cd $V && python3 check.py $pid --tier $tier > $out/check_$pid.txt 2>$out/check_$pid.err; echo "exit=$? (tier $tier, full check; native sweep flagged nothing the restricted runs could decide)" >> $out/check_$pid.txt)
-fi
-Rif [ -n "$hits" ]; then
-  (cd $V && VERIF_ONLY="$hits" python3 check.py $pid --tier $tier > $out/check_$pid.txt 2>$out/check_$pid.err; echo "exit=$? (tier $tier, restricted to the harnesses the native sweep flagged: $hits)" >> $out/check_$pid.txt)
-  if ! grep -q "^VIOLATION" $out/check_$pid.txt && [ "$tier" = quick ]; then
-    # the flagged harnesses may belong to the thorough tier only (larger bounds, slow ones)
-    (cd $V && VERIF_ONLY="$hits" python3 check.py $pid --tier thorough > $out/check_${pid}_thorough.txt 2>$out/check_${pid}_thorough.err; echo "exit=$? (tier thorough, restricted to the harnesses the native sweep flagged: $hits)" >> $out/check_${pid}_thorough.txt)
-    if grep -q "^VIOLATION" $out/check_${pid}_thorough.txt; then cp $out/check_${pid}_thorough.txt $out/check_$pid.txt; fi
-  fi
-fi
-if [ -z "$hits" ] || { ! grep -q "^VIOLATION" $out/check_$pid.txt && grep -q "no obligation was generated" $out/check_$pid.txt; }; then
-  (cd $V && python3 check.py $pid --tier $tier > $out/check_$pid.txt 2>$out/check_$pid.err; echo "exit=$? (tier $tier, full check; native sweep flagged nothing the restricted runs could decide)" >> $out/check_$pid.txt)
-fi
-Uif [ -n "$hits" ]; then
-  (cd $V && VERIF_ONLY="$hits" python3 check.py $pid --tier $tier > $out/check_$pid.txt 2>$out/check_$pid.err; echo "exit=$? (tier $tier, restricted to the harnesses the native sweep flagged: $hits)" >> $out/check_$pid.txt)
-  if ! grep -q "^VIOLATION" $out/check_$pid.txt && [ "$tier" = quick ]; then
-    # the flagged harnesses may belong to the thorough tier only (larger bounds, slow ones)
-    (cd $V && VERIF_ONLY="$hits" python3 check.py $pid --tier thorough > $out/check_${pid}_thorough.txt 2>$out/check_${pid}_thorough.err; echo "exit=$? (tier thorough, restricted to the harnesses the native sweep flagged: $hits)" >> $out/check_${pid}_thorough.txt)
-    if grep -q "^VIOLATION" $out/check_${pid}_thorough.txt; then cp $out/check_${pid}_thorough.txt $out/check_$pid.txt; fi
-  fi
-fi
-if [ -z "$hits" ] || { ! grep -q "^VIOLATION" $out/check_$pid.txt && grep -q "no obligation was generated" $out/check_$pid.txt; }; then
-  (cd $V && python3 check.py $pid --tier $tier > $out/check_$pid.txt 2>$out/check_$pid.err; echo "exit=$? (tier $tier, full check; native sweep flagged nothing the restricted runs could decide)" >> $out/check_$pid.txt)
-fi
-Nif [ -n "$hits" ]; then
-  (cd $V && VERIF_ONLY="$hits" python3 check.py $pid --tier $tier > $out/check_$pid.txt 2>$out/check_$pid.err; echo "exit=$? (tier $tier, restricted to the harnesses the native sweep flagged: $hits)" >> $out/check_$pid.txt)
-  if ! grep -q "^VIOLATION" $out/check_$pid.txt && [ "$tier" = quick ]; then
-    # the flagged harnesses may belong to the thorough tier only (larger bounds, slow ones)
-    (cd $V && VERIF_ONLY="$hits" python3 check.py $pid --tier thorough > $out/check_${pid}_thorough.txt 2>$out/check_${pid}_thorough.err; echo "exit=$? (tier thorough, restricted to the harnesses the native sweep flagged: $hits)" >> $out/check_${pid}_thorough.txt)
-    if grep -q "^VIOLATION" $out/check_${pid}_thorough.txt; then cp $out/check_${pid}_thorough.txt $out/check_$pid.txt; fi
-  fi
-fi
-if [ -z "$hits" ] || { ! grep -q "^VIOLATION" $out/check_$pid.txt && grep -q "no obligation was generated" $out/check_$pid.txt; }; then
-  (cd $V && python3 check.py $pid --tier $tier > $out/check_$pid.txt 2>$out/check_$pid.err; echo "exit=$? (tier $tier, full check; native sweep flagged nothing the restricted runs could decide)" >> $out/check_$pid.txt)
-fi
-_if [ -n "$hits" ]; then
-  (cd $V && VERIF_ONLY="$hits" python3 check.py $pid --tier $tier > $out/check_$pid.txt 2>$out/check_$pid.err; echo "exit=$? (tier $tier, restricted to the harnesses the native sweep flagged: $hits)" >> $out/check_$pid.txt)
-  if ! grep -q "^VIOLATION" $out/check_$pid.txt && [ "$tier" = quick ]; then
-    # the flagged harnesses may belong to the thorough tier only (larger bounds, slow ones)
-    (cd $V && VERIF_ONLY="$hits" python3 check.py $pid --tier thorough > $out/check_${pid}_thorough.txt 2>$out/check_${pid}_thorough.err; echo "exit=$? (tier thorough, restricted to the harnesses the native sweep flagged: $hits)" >> $out/check_${pid}_thorough.txt)
-    if grep -q "^VIOLATION" $out/check_${pid}_thorough.txt; then cp $out/check_${pid}_thorough.txt $out/check_$pid.txt; fi
-  fi
-fi
-if [ -z "$hits" ] || { ! grep -q "^VIOLATION" $out/check_$pid.txt && grep -q "no obligation was generated" $out/check_$pid.txt; }; then
-  (cd $V && python3 check.py $pid --tier $tier > $out/check_$pid.txt 2>$out/check_$pid.err; echo "exit=$? (tier $tier, full check; native sweep flagged nothing the restricted runs could decide)" >> $out/check_$pid.txt)
-fi
-Rif [ -n "$hits" ]; then
-  (cd $V && VERIF_ONLY="$hits" python3 check.py $pid --tier $tier > $out/check_$pid.txt 2>$out/check_$pid.err; echo "exit=$? (tier $tier, restricted to the harnesses the native sweep flagged: $hits)" >> $out/check_$pid.txt)
-  if ! grep -q "^VIOLATION" $out/check_$pid.txt && [ "$tier" = quick ]; then
-    # the flagged harnesses may belong to the thorough tier only (larger bounds, slow ones)
-    (cd $V && VERIF_ONLY="$hits" python3 check.py $pid --tier thorough > $out/check_${pid}_thorough.txt 2>$out/check_${pid}_thorough.err; echo "exit=$? (tier thorough, restricted to the harnesses the native sweep flagged: $hits)" >> $out/check_${pid}_thorough.txt)
-    if grep -q "^VIOLATION" $out/check_${pid}_thorough.txt; then cp $out/check_${pid}_thorough.txt $out/check_$pid.txt; fi
-  fi
-fi
-if [ -z "$hits" ] || { ! grep -q "^VIOLATION" $out/check_$pid.txt && grep -q "no obligation was generated" $out/check_$pid.txt; }; then
-  (cd $V && python3 check.py $pid --tier $tier > $out/check_$pid.txt 2>$out/check_$pid.err; echo "exit=$? (tier $tier, full check; native sweep flagged nothing the restricted runs could decide)" >> $out/check_$pid.txt)
-fi
-Eif [ -n "$hits" ]; then
-  (cd $V && VERIF_ONLY="$hits" python3 check.py $pid --tier $tier > $out/check_$pid.txt 2>$out/check_$pid.err; echo "exit=$? (tier $tier, restricted to the harnesses the native sweep flagged: $hits)" >> $out/check_$pid.txt)
-  if ! grep -q "^VIOLATION" $out/check_$pid.txt && [ "$tier" = quick ]; then
-    # the flagged harnesses may belong to the thorough tier only (larger bounds, slow ones)
-    (cd $V && VERIF_ONLY="$hits" python3 check.py $pid --tier thorough > $out/check_${pid}_thorough.txt 2>$out/check_${pid}_thorough.err; echo "exit=$? (tier thorough, restricted to the harnesses the native sweep flagged: $hits)" >> $out/check_${pid}_thorough.txt)
-    if grep -q "^VIOLATION" $out/check_${pid}_thorough.txt; then cp $out/check_${pid}_thorough.txt $out/check_$pid.txt; fi
-  fi
-fi
-if [ -z "$hits" ] || { ! grep -q "^VIOLATION" $out/check_$pid.txt && grep -q "no obligation was generated" $out/check_$pid.txt; }; then
-  (cd $V && python3 check.py $pid --tier $tier > $out/check_$pid.txt 2>$out/check_$pid.err; echo "exit=$? (tier $tier, full check; native sweep flagged nothing the restricted runs could decide)" >> $out/check_$pid.txt)
-fi
-Pif [ -n "$hits" ]; then
-  (cd $V && VERIF_ONLY="$hits" python3 check.py $pid --tier $tier > $out/check_$pid.txt 2>$out/check_$pid.err; echo "exit=$? (tier $tier, restricted to the harnesses the native sweep flagged: $hits)" >> $out/check_$pid.txt)
-  if ! grep -q "^VIOLATION" $out/check_$pid.txt && [ "$tier" = quick ]; then
-    # the flagged harnesses may belong to the thorough tier only (larger bounds, slow ones)
-    (cd $V && VERIF_ONLY="$hits" python3 check.py $pid --tier thorough > $out/check_${pid}_thorough.txt 2>$out/check_${pid}_thorough.err; echo "exit=$? (tier thorough, restricted to the harnesses the native sweep flagged: $hits)" >> $out/check_${pid}_thorough.txt)
-    if grep -q "^VIOLATION" $out/check_${pid}_thorough.txt; then cp $out/check_${pid}_thorough.txt $out/check_$pid.txt; fi
-  fi
-fi
-if [ -z "$hits" ] || { ! grep -q "^VIOLATION" $out/check_$pid.txt && grep -q "no obligation was generated" $out/check_$pid.txt; }; then
-  (cd $V && python3 check.py $pid --tier $tier > $out/check_$pid.txt 2>$out/check_$pid.err; echo "exit=$? (tier $tier, full check; native sweep flagged nothing the restricted runs could decide)" >> $out/check_$pid.txt)
-fi
-Oif [ -n "$hits" ]; then
-  (cd $V && VERIF_ONLY="$hits" python3 check.py $pid --tier $tier > $out/check_$pid.txt 2>$out/check_$pid.err; echo "exit=$? (tier $tier, restricted to the harnesses the native sweep flagged: $hits)" >> $out/check_$pid.txt)
-  if ! grep -q "^VIOLATION" $out/check_$pid.txt && [ "$tier" = quick ]; then
-    # the flagged harnesses may belong to the thorough tier only (larger bounds, slow ones)
-    (cd $V && VERIF_ONLY="$hits" python3 check.py $pid --tier thorough > $out/check_${pid}_thorough.txt 2>$out/check_${pid}_thorough.err; echo "exit=$? (tier thorough, restricted to the harnesses the native sweep flagged: $hits)" >> $out/check_${pid}_thorough.txt)
-    if grep -q "^VIOLATION" $out/check_${pid}_thorough.txt; then cp $out/check_${pid}_thorough.txt $out/check_$pid.txt; fi
-  fi
-fi
-if [ -z "$hits" ] || { ! grep -q "^VIOLATION" $out/check_$pid.txt && grep -q "no obligation was generated" $out/check_$pid.txt; }; then
-  (cd $V && python3 check.py $pid --tier $tier > $out/check_$pid.txt 2>$out/check_$pid.err; echo "exit=$? (tier $tier, full check; native sweep flagged nothing the restricted runs could decide)" >> $out/check_$pid.txt)
-fi
-:if [ -n "$hits" ]; then
-  (cd $V && VERIF_ONLY="$hits" python3 check.py $pid --tier $tier > $out/check_$pid.txt 2>$out/check_$pid.err; echo "exit=$? (tier $tier, restricted to the harnesses the native sweep flagged: $hits)" >> $out/check_$pid.txt)
-  if ! grep -q "^VIOLATION" $out/check_$pid.txt && [ "$tier" = quick ]; then
-    # the flagged harnesses may belong to the thorough tier only (larger bounds, slow ones)
-    (cd $V && VERIF_ONLY="$hits" python3 check.py $pid --tier thorough > $out/check_${pid}_thorough.txt 2>$out/check_${pid}_thorough.err; echo "exit=$? (tier thorough, restricted to the harnesses the native sweep flagged: $hits)" >> $out/check_${pid}_thorough.txt)
-    if grep -q "^VIOLATION" $out/check_${pid}_thorough.txt; then cp $out/check_${pid}_thorough.txt $out/check_$pid.txt; fi
-  fi
-fi
-if [ -z "$hits" ] || { ! grep -q "^VIOLATION" $out/check_$pid.txt && grep -q "no obligation was generated" $out/check_$pid.txt; }; then
-  (cd $V && python3 check.py $pid --tier $tier > $out/check_$pid.txt 2>$out/check_$pid.err; echo "exit=$? (tier $tier, full check; native sweep flagged nothing the restricted runs could decide)" >> $out/check_$pid.txt)
-fi
--if [ -n "$hits" ]; then
-  (cd $V && VERIF_ONLY="$hits" python3 check.py $pid --tier $tier > $out/check_$pid.txt 2>$out/check_$pid.err; echo "exit=$? (tier $tier, restricted to the harnesses the native sweep flagged: $hits)" >> $out/check_$pid.txt)
-  if ! grep -q "^VIOLATION" $out/check_$pid.txt && [ "$tier" = quick ]; then
-    # the flagged harnesses may belong to the thorough tier only (larger bounds, slow ones)
-    (cd $V && VERIF_ONLY="$hits" python3 check.py $pid --tier thorough > $out/check_${pid}_thorough.txt 2>$out/check_${pid}_thorough.err; echo "exit=$? (tier thorough, restricted to the harnesses the native sweep flagged: $hits)" >> $out/check_${pid}_thorough.txt)
-    if grep -q "^VIOLATION" $out/check_${pid}_thorough.txt; then cp $out/check_${pid}_thorough.txt $out/check_$pid.txt; fi
-  fi
-fi
-if [ -z "$hits" ] || { ! grep -q "^VIOLATION" $out/check_$pid.txt && grep -q "no obligation was generated" $out/check_$pid.txt; }; then
-  (cd $V && python3 check.py $pid --tier $tier > $out/check_$pid.txt 2>$out/check_$pid.err; echo "exit=$? (tier $tier, full check; native sweep flagged nothing the restricted runs could decide)" >> $out/check_$pid.txt)
-fi
-/if [ -n "$hits" ]; then
-  (cd $V && VERIF_ONLY="$hits" python3 check.py $pid --tier $tier > $out/check_$pid.txt 2>$out/check_$pid.err; echo "exit=$? (tier $tier, restricted to the harnesses the native sweep flagged: $hits)" >> $out/check_$pid.txt)
-  if ! grep -q "^VIOLATION" $out/check_$pid.txt && [ "$tier" = quick ]; then
-    # the flagged harnesses may belong to the thorough tier only (larger bounds, slow ones)
-    (cd $V && VERIF_ONLY="$hits" python3 check.py $pid --tier thorough > $out/check_${pid}_thorough.txt 2>$out/check_${pid}_thorough.err; echo "exit=$? (tier thorough, restricted to the harnesses the native sweep flagged: $hits)" >> $out/check_${pid}_thorough.txt)
-    if grep -q "^VIOLATION" $out/check_${pid}_thorough.txt; then cp $out/check_${pid}_thorough.txt $out/check_$pid.txt; fi
-  fi
-fi
-if [ -z "$hits" ] || { ! grep -q "^VIOLATION" $out/check_$pid.txt && grep -q "no obligation was generated" $out/check_$pid.txt; }; then
-  (cd $V && python3 check.py $pid --tier $tier > $out/check_$pid.txt 2>$out/check_$pid.err; echo "exit=$? (tier $tier, full check; native sweep flagged nothing the restricted runs could decide)" >> $out/check_$pid.txt)
-fi
-rif [ -n "$hits" ]; then
-  (cd $V && VERIF_ONLY="$hits" python3 check.py $pid --tier $tier > $out/check_$pid.txt 2>$out/check_$pid.err; echo "exit=$? (tier $tier, restricted to the harnesses the native sweep flagged: $hits)" >> $out/check_$pid.txt)
-  if ! grep -q "^VIOLATION" $out/check_$pid.txt && [ "$tier" = quick ]; then
-    # the flagged harnesses may belong to the thorough tier only (larger bounds, slow ones)
-    (cd $V && VERIF_ONLY="$hits" python3 check.py $pid --tier thorough > $out/check_${pid}_thorough.txt 2>$out/check_${pid}_thorough.err; echo "exit=$? (tier thorough, restricted to the harnesses the native sweep flagged: $hits)" >> $out/check_${pid}_thorough.txt)
-    if grep -q "^VIOLATION" $out/check_${pid}_thorough.txt; then cp $out/check_${pid}_thorough.txt $out/check_$pid.txt; fi
-  fi
-fi
-if [ -z "$hits" ] || { ! grep -q "^VIOLATION" $out/check_$pid.txt && grep -q "no obligation was generated" $out/check_$pid.txt; }; then
-  (cd $V && python3 check.py $pid --tier $tier > $out/check_$pid.txt 2>$out/check_$pid.err; echo "exit=$? (tier $tier, full check; native sweep flagged nothing the restricted runs could decide)" >> $out/check_$pid.txt)
-fi
-eif [ -n "$hits" ]; then
-  (cd $V && VERIF_ONLY="$hits" python3 check.py $pid --tier $tier > $out/check_$pid.txt 2>$out/check_$pid.err; echo "exit=$? (tier $tier, restricted to the harnesses the native sweep flagged: $hits)" >> $out/check_$pid.txt)
-  if ! grep -q "^VIOLATION" $out/check_$pid.txt && [ "$tier" = quick ]; then
-    # the flagged harnesses may belong to the thorough tier only (larger bounds, slow ones)
-    (cd $V && VERIF_ONLY="$hits" python3 check.py $pid --tier thorough > $out/check_${pid}_thorough.txt 2>$out/check_${pid}_thorough.err; echo "exit=$? (tier thorough, restricted to the harnesses the native sweep flagged: $hits)" >> $out/check_${pid}_thorough.txt)
-    if grep -q "^VIOLATION" $out/check_${pid}_thorough.txt; then cp $out/check_${pid}_thorough.txt $out/check_$pid.txt; fi
-  fi
-fi
-if [ -z "$hits" ] || { ! grep -q "^VIOLATION" $out/check_$pid.txt && grep -q "no obligation was generated" $out/check_$pid.txt; }; then
-  (cd $V && python3 check.py $pid --tier $tier > $out/check_$pid.txt 2>$out/check_$pid.err; echo "exit=$? (tier $tier, full check; native sweep flagged nothing the restricted runs could decide)" >> $out/check_$pid.txt)
-fi
-pif [ -n "$hits" ]; then
-  (cd $V && VERIF_ONLY="$hits" python3 check.py $pid --tier $tier > $out/check_$pid.txt 2>$out/check_$pid.err; echo "exit=$? (tier $tier, restricted to the harnesses the native sweep flagged: $hits)" >> $out/check_$pid.txt)
-  if ! grep -q "^VIOLATION" $out/check_$pid.txt && [ "$tier" = quick ]; then
-    # the flagged harnesses may belong to the thorough tier only (larger bounds, slow ones)
-    (cd $V && VERIF_ONLY="$hits" python3 check.py $pid --tier thorough > $out/check_${pid}_thorough.txt 2>$out/check_${pid}_thorough.err; echo "exit=$? (tier thorough, restricted to the harnesses the native sweep flagged: $hits)" >> $out/check_${pid}_thorough.txt)
-    if grep -q "^VIOLATION" $out/check_${pid}_thorough.txt; then cp $out/check_${pid}_thorough.txt $out/check_$pid.txt; fi
-  fi
-fi
-if [ -z "$hits" ] || { ! grep -q "^VIOLATION" $out/check_$pid.txt && grep -q "no obligation was generated" $out/check_$pid.txt; }; then
-  (cd $V && python3 check.py $pid --tier $tier > $out/check_$pid.txt 2>$out/check_$pid.err; echo "exit=$? (tier $tier, full check; native sweep flagged nothing the restricted runs could decide)" >> $out/check_$pid.txt)
-fi
-oif [ -n "$hits" ]; then
-  (cd $V && VERIF_ONLY="$hits" python3 check.py $pid --tier $tier > $out/check_$pid.txt 2>$out/check_$pid.err; echo "exit=$? (tier $tier, restricted to the harnesses the native sweep flagged: $hits)" >> $out/check_$pid.txt)
-  if ! grep -q "^VIOLATION" $out/check_$pid.txt && [ "$tier" = quick ]; then
-    # the flagged harnesses may belong to the thorough tier only (larger bounds, slow ones)
-    (cd $V && VERIF_ONLY="$hits" python3 check.py $pid --tier thorough > $out/check_${pid}_thorough.txt 2>$out/check_${pid}_thorough.err; echo "exit=$? (tier thorough, restricted to the harnesses the native sweep flagged: $hits)" >> $out/check_${pid}_thorough.txt)
-    if grep -q "^VIOLATION" $out/check_${pid}_thorough.txt; then cp $out/check_${pid}_thorough.txt $out/check_$pid.txt; fi
-  fi
-fi
-if [ -z "$hits" ] || { ! grep -q "^VIOLATION" $out/check_$pid.txt && grep -q "no obligation was generated" $out/check_$pid.txt; }; then
-  (cd $V && python3 check.py $pid --tier $tier > $out/check_$pid.txt 2>$out/check_$pid.err; echo "exit=$? (tier $tier, full check; native sweep flagged nothing the restricted runs could decide)" >> $out/check_$pid.txt)
-fi
-}if [ -n "$hits" ]; then
-  (cd $V && VERIF_ONLY="$hits" python3 check.py $pid --tier $tier > $out/check_$pid.txt 2>$out/check_$pid.err; echo "exit=$? (tier $tier, restricted to the harnesses the native sweep flagged: $hits)" >> $out/check_$pid.txt)
-  if ! grep -q "^VIOLATION" $out/check_$pid.txt && [ "$tier" = quick ]; then
-    # the flagged harnesses may belong to the thorough tier only (larger bounds, slow ones)
-    (cd $V && VERIF_ONLY="$hits" python3 check.py $pid --tier thorough > $out/check_${pid}_thorough.txt 2>$out/check_${pid}_thorough.err; echo "exit=$? (tier thorough, restricted to the harnesses the native sweep flagged: $hits)" >> $out/check_${pid}_thorough.txt)
-    if grep -q "^VIOLATION" $out/check_${pid}_thorough.txt; then cp $out/check_${pid}_thorough.txt $out/check_$pid.txt; fi
-  fi
-fi
-if [ -z "$hits" ] || { ! grep -q "^VIOLATION" $out/check_$pid.txt && grep -q "no obligation was generated" $out/check_$pid.txt; }; then
-  (cd $V && python3 check.py $pid --tier $tier > $out/check_$pid.txt 2>$out/check_$pid.err; echo "exit=$? (tier $tier, full check; native sweep flagged nothing the restricted runs could decide)" >> $out/check_$pid.txt)
-fi
-
-if [ -n "$hits" ]; then
-  (cd $V && VERIF_ONLY="$hits" python3 check.py $pid --tier $tier > $out/check_$pid.txt 2>$out/check_$pid.err; echo "exit=$? (tier $tier, restricted to the harnesses the native sweep flagged: $hits)" >> $out/check_$pid.txt)
-  if ! grep -q "^VIOLATION" $out/check_$pid.txt && [ "$tier" = quick ]; then
-    # the flagged harnesses may belong to the thorough tier only (larger bounds, slow ones)
-    (cd $V && VERIF_ONLY="$hits" python3 check.py $pid --tier thorough > $out/check_${pid}_thorough.txt 2>$out/check_${pid}_thorough.err; echo "exit=$? (tier thorough, restricted to the harnesses the native sweep flagged: $hits)" >> $out/check_${pid}_thorough.txt)
-    if grep -q "^VIOLATION" $out/check_${pid}_thorough.txt; then cp $out/check_${pid}_thorough.txt $out/check_$pid.txt; fi
-  fi
-fi
-if [ -z "$hits" ] || { ! grep -q "^VIOLATION" $out/check_$pid.txt && grep -q "no obligation was generated" $out/check_$pid.txt; }; then
-  (cd $V && python3 check.py $pid --tier $tier > $out/check_$pid.txt 2>$out/check_$pid.err; echo "exit=$? (tier $tier, full check; native sweep flagged nothing the restricted runs could decide)" >> $out/check_$pid.txt)
-fi
-wif [ -n "$hits" ]; then
-  (cd $V && VERIF_ONLY="$hits" python3 check.py $pid --tier $tier > $out/check_$pid.txt 2>$out/check_$pid.err; echo "exit=$? (tier $tier, restricted to the harnesses the native sweep flagged: $hits)" >> $out/check_$pid.txt)
-  if ! grep -q "^VIOLATION" $out/check_$pid.txt && [ "$tier" = quick ]; then
-    # the flagged harnesses may belong to the thorough tier only (larger bounds, slow ones)
-    (cd $V && VERIF_ONLY="$hits" python3 check.py $pid --tier thorough > $out/check_${pid}_thorough.txt 2>$out/check_${pid}_thorough.err; echo "exit=$? (tier thorough, restricted to the harnesses the native sweep flagged: $hits)" >> $out/check_${pid}_thorough.txt)
-    if grep -q "^VIOLATION" $out/check_${pid}_thorough.txt; then cp $out/check_${pid}_thorough.txt $out/check_$pid.txt; fi
-  fi
-fi
-if [ -z "$hits" ] || { ! grep -q "^VIOLATION" $out/check_$pid.txt && grep -q "no obligation was generated" $out/check_$pid.txt; }; then
-  (cd $V && python3 check.py $pid --tier $tier > $out/check_$pid.txt 2>$out/check_$pid.err; echo "exit=$? (tier $tier, full check; native sweep flagged nothing the restricted runs could decide)" >> $out/check_$pid.txt)
-fi
-tif [ -n "$hits" ]; then
-  (cd $V && VERIF_ONLY="$hits" python3 check.py $pid --tier $tier > $out/check_$pid.txt 2>$out/check_$pid.err; echo "exit=$? (tier $tier, restricted to the harnesses the native sweep flagged: $hits)" >> $out/check_$pid.txt)
-  if ! grep -q "^VIOLATION" $out/check_$pid.txt && [ "$tier" = quick ]; then
-    # the flagged harnesses may belong to the thorough tier only (larger bounds, slow ones)
-    (cd $V && VERIF_ONLY="$hits" python3 check.py $pid --tier thorough > $out/check_${pid}_thorough.txt 2>$out/check_${pid}_thorough.err; echo "exit=$? (tier thorough, restricted to the harnesses the native sweep flagged: $hits)" >> $out/check_${pid}_thorough.txt)
-    if grep -q "^VIOLATION" $out/check_${pid}_thorough.txt; then cp $out/check_${pid}_thorough.txt $out/check_$pid.txt; fi
-  fi
-fi
-if [ -z "$hits" ] || { ! grep -q "^VIOLATION" $out/check_$pid.txt && grep -q "no obligation was generated" $out/check_$pid.txt; }; then
-  (cd $V && python3 check.py $pid --tier $tier > $out/check_$pid.txt 2>$out/check_$pid.err; echo "exit=$? (tier $tier, full check; native sweep flagged nothing the restricted runs could decide)" >> $out/check_$pid.txt)
-fi
-=if [ -n "$hits" ]; then
-  (cd $V && VERIF_ONLY="$hits" python3 check.py $pid --tier $tier > $out/check_$pid.txt 2>$out/check_$pid.err; echo "exit=$? (tier $tier, restricted to the harnesses the native sweep flagged: $hits)" >> $out/check_$pid.txt)
-  if ! grep -q "^VIOLATION" $out/check_$pid.txt && [ "$tier" = quick ]; then
-    # the flagged harnesses may belong to the thorough tier only (larger bounds, slow ones)
-    (cd $V && VERIF_ONLY="$hits" python3 check.py $pid --tier thorough > $out/check_${pid}_thorough.txt 2>$out/check_${pid}_thorough.err; echo "exit=$? (tier thorough, restricted to the harnesses the native sweep flagged: $hits)" >> $out/check_${pid}_thorough.txt)
-    if grep -q "^VIOLATION" $out/check_${pid}_thorough.txt; then cp $out/check_${pid}_thorough.txt $out/check_$pid.txt; fi
-  fi
-fi
-if [ -z "$hits" ] || { ! grep -q "^VIOLATION" $out/check_$pid.txt && grep -q "no obligation was generated" $out/check_$pid.txt; }; then
-  (cd $V && python3 check.py $pid --tier $tier > $out/check_$pid.txt 2>$out/check_$pid.err; echo "exit=$? (tier $tier, full check; native sweep flagged nothing the restricted runs could decide)" >> $out/check_$pid.txt)
-fi
-/if [ -n "$hits" ]; then
-  (cd $V && VERIF_ONLY="$hits" python3 check.py $pid --tier $tier > $out/check_$pid.txt 2>$out/check_$pid.err; echo "exit=$? (tier $tier, restricted to the harnesses the native sweep flagged: $hits)" >> $out/check_$pid.txt)
-  if ! grep -q "^VIOLATION" $out/check_$pid.txt && [ "$tier" = quick ]; then
-    # the flagged harnesses may belong to the thorough tier only (larger bounds, slow ones)
-    (cd $V && VERIF_ONLY="$hits" python3 check.py $pid --tier thorough > $out/check_${pid}_thorough.txt 2>$out/check_${pid}_thorough.err; echo "exit=$? (tier thorough, restricted to the harnesses the native sweep flagged: $hits)" >> $out/check_${pid}_thorough.txt)
-    if grep -q "^VIOLATION" $out/check_${pid}_thorough.txt; then cp $out/check_${pid}_thorough.txt $out/check_$pid.txt; fi
-  fi
-fi
-if [ -z "$hits" ] || { ! grep -q "^VIOLATION" $out/check_$pid.txt && grep -q "no obligation was generated" $out/check_$pid.txt; }; then
-  (cd $V && python3 check.py $pid --tier $tier > $out/check_$pid.txt 2>$out/check_$pid.err; echo "exit=$? (tier $tier, full check; native sweep flagged nothing the restricted runs could decide)" >> $out/check_$pid.txt)
-fi
-tif [ -n "$hits" ]; then
-  (cd $V && VERIF_ONLY="$hits" python3 check.py $pid --tier $tier > $out/check_$pid.txt 2>$out/check_$pid.err; echo "exit=$? (tier $tier, restricted to the harnesses the native sweep flagged: $hits)" >> $out/check_$pid.txt)
-  if ! grep -q "^VIOLATION" $out/check_$pid.txt && [ "$tier" = quick ]; then
-    # the flagged harnesses may belong to the thorough tier only (larger bounds, slow ones)
-    (cd $V && VERIF_ONLY="$hits" python3 check.py $pid --tier thorough > $out/check_${pid}_thorough.txt 2>$out/check_${pid}_thorough.err; echo "exit=$? (tier thorough, restricted to the harnesses the native sweep flagged: $hits)" >> $out/check_${pid}_thorough.txt)
-    if grep -q "^VIOLATION" $out/check_${pid}_thorough.txt; then cp $out/check_${pid}_thorough.txt $out/check_$pid.txt; fi
-  fi
-fi
-if [ -z "$hits" ] || { ! grep -q "^VIOLATION" $out/check_$pid.txt && grep -q "no obligation was generated" $out/check_$pid.txt; }; then
-  (cd $V && python3 check.py $pid --tier $tier > $out/check_$pid.txt 2>$out/check_$pid.err; echo "exit=$? (tier $tier, full check; native sweep flagged nothing the restricted runs could decide)" >> $out/check_$pid.txt)
-fi
-mif [ -n "$hits" ]; then
-  (cd $V && VERIF_ONLY="$hits" python3 check.py $pid --tier $tier > $out/check_$pid.txt 2>$out/check_$pid.err; echo "exit=$? (tier $tier, restricted to the harnesses the native sweep flagged: $hits)" >> $out/check_$pid.txt)
-  if ! grep -q "^VIOLATION" $out/check_$pid.txt && [ "$tier" = quick ]; then
-    # the flagged harnesses may belong to the thorough tier only (larger bounds, slow ones)
-    (cd $V && VERIF_ONLY="$hits" python3 check.py $pid --tier thorough > $out/check_${pid}_thorough.txt 2>$out/check_${pid}_thorough.err; echo "exit=$? (tier thorough, restricted to the harnesses the native sweep flagged: $hits)" >> $out/check_${pid}_thorough.txt)
-    if grep -q "^VIOLATION" $out/check_${pid}_thorough.txt; then cp $out/check_${pid}_thorough.txt $out/check_$pid.txt; fi
-  fi
-fi
-if [ -z "$hits" ] || { ! grep -q "^VIOLATION" $out/check_$pid.txt && grep -q "no obligation was generated" $out/check_$pid.txt; }; then
-  (cd $V && python3 check.py $pid --tier $tier > $out/check_$pid.txt 2>$out/check_$pid.err; echo "exit=$? (tier $tier, full check; native sweep flagged nothing the restricted runs could decide)" >> $out/check_$pid.txt)
-fi
-pif [ -n "$hits" ]; then
-  (cd $V && VERIF_ONLY="$hits" python3 check.py $pid --tier $tier > $out/check_$pid.txt 2>$out/check_$pid.err; echo "exit=$? (tier $tier, restricted to the harnesses the native sweep flagged: $hits)" >> $out/check_$pid.txt)
-  if ! grep -q "^VIOLATION" $out/check_$pid.txt && [ "$tier" = quick ]; then
-    # the flagged harnesses may belong to the thorough tier only (larger bounds, slow ones)
-    (cd $V && VERIF_ONLY="$hits" python3 check.py $pid --tier thorough > $out/check_${pid}_thorough.txt 2>$out/check_${pid}_thorough.err; echo "exit=$? (tier thorough, restricted to the harnesses the native sweep flagged: $hits)" >> $out/check_${pid}_thorough.txt)
-    if grep -q "^VIOLATION" $out/check_${pid}_thorough.txt; then cp $out/check_${pid}_thorough.txt $out/check_$pid.txt; fi
-  fi
-fi
-if [ -z "$hits" ] || { ! grep -q "^VIOLATION" $out/check_$pid.txt && grep -q "no obligation was generated" $out/check_$pid.txt; }; then
-  (cd $V && python3 check.py $pid --tier $tier > $out/check_$pid.txt 2>$out/check_$pid.err; echo "exit=$? (tier $tier, full check; native sweep flagged nothing the restricted runs could decide)" >> $out/check_$pid.txt)
-fi
-/if [ -n "$hits" ]; then
-  (cd $V && VERIF_ONLY="$hits" python3 check.py $pid --tier $tier > $out/check_$pid.txt 2>$out/check_$pid.err; echo "exit=$? (tier $tier, restricted to the harnesses the native sweep flagged: $hits)" >> $out/check_$pid.txt)
-  if ! grep -q "^VIOLATION" $out/check_$pid.txt && [ "$tier" = quick ]; then
-    # the flagged harnesses may belong to the thorough tier only (larger bounds, slow ones)
-    (cd $V && VERIF_ONLY="$hits" python3 check.py $pid --tier thorough > $out/check_${pid}_thorough.txt 2>$out/check_${pid}_thorough.err; echo "exit=$? (tier thorough, restricted to the harnesses the native sweep flagged: $hits)" >> $out/check_${pid}_thorough.txt)
-    if grep -q "^VIOLATION" $out/check_${pid}_thorough.txt; then cp $out/check_${pid}_thorough.txt $out/check_$pid.txt; fi
-  fi
-fi
-if [ -z "$hits" ] || { ! grep -q "^VIOLATION" $out/check_$pid.txt && grep -q "no obligation was generated" $out/check_$pid.txt; }; then
-  (cd $V && python3 check.py $pid --tier $tier > $out/check_$pid.txt 2>$out/check_$pid.err; echo "exit=$? (tier $tier, full check; native sweep flagged nothing the restricted runs could decide)" >> $out/check_$pid.txt)
-fi
-sif [ -n "$hits" ]; then
-  (cd $V && VERIF_ONLY="$hits" python3 check.py $pid --tier $tier > $out/check_$pid.txt 2>$out/check_$pid.err; echo "exit=$? (tier $tier, restricted to the harnesses the native sweep flagged: $hits)" >> $out/check_$pid.txt)
-  if ! grep -q "^VIOLATION" $out/check_$pid.txt && [ "$tier" = quick ]; then
-    # the flagged harnesses may belong to the thorough tier only (larger bounds, slow ones)
-    (cd $V && VERIF_ONLY="$hits" python3 check.py $pid --tier thorough > $out/check_${pid}_thorough.txt 2>$out/check_${pid}_thorough.err; echo "exit=$? (tier thorough, restricted to the harnesses the native sweep flagged: $hits)" >> $out/check_${pid}_thorough.txt)
-    if grep -q "^VIOLATION" $out/check_${pid}_thorough.txt; then cp $out/check_${pid}_thorough.txt $out/check_$pid.txt; fi
-  fi
-fi
-if [ -z "$hits" ] || { ! grep -q "^VIOLATION" $out/check_$pid.txt && grep -q "no obligation was generated" $out/check_$pid.txt; }; then
-  (cd $V && python3 check.py $pid --tier $tier > $out/check_$pid.txt 2>$out/check_$pid.err; echo "exit=$? (tier $tier, full check; native sweep flagged nothing the restricted runs could decide)" >> $out/check_$pid.txt)
-fi
-eif [ -n "$hits" ]; then
-  (cd $V && VERIF_ONLY="$hits" python3 check.py $pid --tier $tier > $out/check_$pid.txt 2>$out/check_$pid.err; echo "exit=$? (tier $tier, restricted to the harnesses the native sweep flagged: $hits)" >> $out/check_$pid.txt)
-  if ! grep -q "^VIOLATION" $out/check_$pid.txt && [ "$tier" = quick ]; then
-    # the flagged harnesses may belong to the thorough tier only (larger bounds, slow ones)
-    (cd $V && VERIF_ONLY="$hits" python3 check.py $pid --tier thorough > $out/check_${pid}_thorough.txt 2>$out/check_${pid}_thorough.err; echo "exit=$? (tier thorough, restricted to the harnesses the native sweep flagged: $hits)" >> $out/check_${pid}_thorough.txt)
-    if grep -q "^VIOLATION" $out/check_${pid}_thorough.txt; then cp $out/check_${pid}_thorough.txt $out/check_$pid.txt; fi
-  fi
-fi
-if [ -z "$hits" ] || { ! grep -q "^VIOLATION" $out/check_$pid.txt && grep -q "no obligation was generated" $out/check_$pid.txt; }; then
-  (cd $V && python3 check.py $pid --tier $tier > $out/check_$pid.txt 2>$out/check_$pid.err; echo "exit=$? (tier $tier, full check; native sweep flagged nothing the restricted runs could decide)" >> $out/check_$pid.txt)
-fi
-eif [ -n "$hits" ]; then
-  (cd $V && VERIF_ONLY="$hits" python3 check.py $pid --tier $tier > $out/check_$pid.txt 2>$out/check_$pid.err; echo "exit=$? (tier $tier, restricted to the harnesses the native sweep flagged: $hits)" >> $out/check_$pid.txt)
-  if ! grep -q "^VIOLATION" $out/check_$pid.txt && [ "$tier" = quick ]; then
-    # the flagged harnesses may belong to the thorough tier only (larger bounds, slow ones)
-    (cd $V && VERIF_ONLY="$hits" python3 check.py $pid --tier thorough > $out/check_${pid}_thorough.txt 2>$out/check_${pid}_thorough.err; echo "exit=$? (tier thorough, restricted to the harnesses the native sweep flagged: $hits)" >> $out/check_${pid}_thorough.txt)
-    if grep -q "^VIOLATION" $out/check_${pid}_thorough.txt; then cp $out/check_${pid}_thorough.txt $out/check_$pid.txt; fi
-  fi
-fi
-if [ -z "$hits" ] || { ! grep -q "^VIOLATION" $out/check_$pid.txt && grep -q "no obligation was generated" $out/check_$pid.txt; }; then
-  (cd $V && python3 check.py $pid --tier $tier > $out/check_$pid.txt 2>$out/check_$pid.err; echo "exit=$? (tier $tier, full check; native sweep flagged nothing the restricted runs could decide)" >> $out/check_$pid.txt)
-fi
-dif [ -n "$hits" ]; then
-  (cd $V && VERIF_ONLY="$hits" python3 check.py $pid --tier $tier > $out/check_$pid.txt 2>$out/check_$pid.err; echo "exit=$? (tier $tier, restricted to the harnesses the native sweep flagged: $hits)" >> $out/check_$pid.txt)
-  if ! grep -q "^VIOLATION" $out/check_$pid.txt && [ "$tier" = quick ]; then
-    # the flagged harnesses may belong to the thorough tier only (larger bounds, slow ones)
-    (cd $V && VERIF_ONLY="$hits" python3 check.py $pid --tier thorough > $out/check_${pid}_thorough.txt 2>$out/check_${pid}_thorough.err; echo "exit=$? (tier thorough, restricted to the harnesses the native sweep flagged: $hits)" >> $out/check_${pid}_thorough.txt)
-    if grep -q "^VIOLATION" $out/check_${pid}_thorough.txt; then cp $out/check_${pid}_thorough.txt $out/check_$pid.txt; fi
-  fi
-fi
-if [ -z "$hits" ] || { ! grep -q "^VIOLATION" $out/check_$pid.txt && grep -q "no obligation was generated" $out/check_$pid.txt; }; then
-  (cd $V && python3 check.py $pid --tier $tier > $out/check_$pid.txt 2>$out/check_$pid.err; echo "exit=$? (tier $tier, full check; native sweep flagged nothing the restricted runs could decide)" >> $out/check_$pid.txt)
-fi
-rif [ -n "$hits" ]; then
-  (cd $V && VERIF_ONLY="$hits" python3 check.py $pid --tier $tier > $out/check_$pid.txt 2>$out/check_$pid.err; echo "exit=$? (tier $tier, restricted to the harnesses the native sweep flagged: $hits)" >> $out/check_$pid.txt)
-  if ! grep -q "^VIOLATION" $out/check_$pid.txt && [ "$tier" = quick ]; then
-    # the flagged harnesses may belong to the thorough tier only (larger bounds, slow ones)
-    (cd $V && VERIF_ONLY="$hits" python3 check.py $pid --tier thorough > $out/check_${pid}_thorough.txt 2>$out/check_${pid}_thorough.err; echo "exit=$? (tier thorough, restricted to the harnesses the native sweep flagged: $hits)" >> $out/check_${pid}_thorough.txt)
-    if grep -q "^VIOLATION" $out/check_${pid}_thorough.txt; then cp $out/check_${pid}_thorough.txt $out/check_$pid.txt; fi
-  fi
-fi
-if [ -z "$hits" ] || { ! grep -q "^VIOLATION" $out/check_$pid.txt && grep -q "no obligation was generated" $out/check_$pid.txt; }; then
-  (cd $V && python3 check.py $pid --tier $tier > $out/check_$pid.txt 2>$out/check_$pid.err; echo "exit=$? (tier $tier, full check; native sweep flagged nothing the restricted runs could decide)" >> $out/check_$pid.txt)
-fi
-uif [ -n "$hits" ]; then
-  (cd $V && VERIF_ONLY="$hits" python3 check.py $pid --tier $tier > $out/check_$pid.txt 2>$out/check_$pid.err; echo "exit=$? (tier $tier, restricted to the harnesses the native sweep flagged: $hits)" >> $out/check_$pid.txt)
-  if ! grep -q "^VIOLATION" $out/check_$pid.txt && [ "$tier" = quick ]; then
-    # the flagged harnesses may belong to the thorough tier only (larger bounds, slow ones)
-    (cd $V && VERIF_ONLY="$hits" python3 check.py $pid --tier thorough > $out/check_${pid}_thorough.txt 2>$out/check_${pid}_thorough.err; echo "exit=$? (tier thorough, restricted to the harnesses the native sweep flagged: $hits)" >> $out/check_${pid}_thorough.txt)
-    if grep -q "^VIOLATION" $out/check_${pid}_thorough.txt; then cp $out/check_${pid}_thorough.txt $out/check_$pid.txt; fi
-  fi
-fi
-if [ -z "$hits" ] || { ! grep -q "^VIOLATION" $out/check_$pid.txt && grep -q "no obligation was generated" $out/check_$pid.txt; }; then
-  (cd $V && python3 check.py $pid --tier $tier > $out/check_$pid.txt 2>$out/check_$pid.err; echo "exit=$? (tier $tier, full check; native sweep flagged nothing the restricted runs could decide)" >> $out/check_$pid.txt)
-fi
-nif [ -n "$hits" ]; then
-  (cd $V && VERIF_ONLY="$hits" python3 check.py $pid --tier $tier > $out/check_$pid.txt 2>$out/check_$pid.err; echo "exit=$? (tier $tier, restricted to the harnesses the native sweep flagged: $hits)" >> $out/check_$pid.txt)
-  if ! grep -q "^VIOLATION" $out/check_$pid.txt && [ "$tier" = quick ]; then
-    # the flagged harnesses may belong to the thorough tier only (larger bounds, slow ones)
-    (cd $V && VERIF_ONLY="$hits" python3 check.py $pid --tier thorough > $out/check_${pid}_thorough.txt 2>$out/check_${pid}_thorough.err; echo "exit=$? (tier thorough, restricted to the harnesses the native sweep flagged: $hits)" >> $out/check_${pid}_thorough.txt)
-    if grep -q "^VIOLATION" $out/check_${pid}_thorough.txt; then cp $out/check_${pid}_thorough.txt $out/check_$pid.txt; fi
-  fi
-fi
-if [ -z "$hits" ] || { ! grep -q "^VIOLATION" $out/check_$pid.txt && grep -q "no obligation was generated" $out/check_$pid.txt; }; then
-  (cd $V && python3 check.py $pid --tier $tier > $out/check_$pid.txt 2>$out/check_$pid.err; echo "exit=$? (tier $tier, full check; native sweep flagged nothing the restricted runs could decide)" >> $out/check_$pid.txt)
-fi
-/if [ -n "$hits" ]; then
-  (cd $V && VERIF_ONLY="$hits" python3 check.py $pid --tier $tier > $out/check_$pid.txt 2>$out/check_$pid.err; echo "exit=$? (tier $tier, restricted to the harnesses the native sweep flagged: $hits)" >> $out/check_$pid.txt)
-  if ! grep -q "^VIOLATION" $out/check_$pid.txt && [ "$tier" = quick ]; then
-    # the flagged harnesses may belong to the thorough tier only (larger bounds, slow ones)
-    (cd $V && VERIF_ONLY="$hits" python3 check.py $pid --tier thorough > $out/check_${pid}_thorough.txt 2>$out/check_${pid}_thorough.err; echo "exit=$? (tier thorough, restricted to the harnesses the native sweep flagged: $hits)" >> $out/check_${pid}_thorough.txt)
-    if grep -q "^VIOLATION" $out/check_${pid}_thorough.txt; then cp $out/check_${pid}_thorough.txt $out/check_$pid.txt; fi
-  fi
-fi
-if [ -z "$hits" ] || { ! grep -q "^VIOLATION" $out/check_$pid.txt && grep -q "no obligation was generated" $out/check_$pid.txt; }; then
-  (cd $V && python3 check.py $pid --tier $tier > $out/check_$pid.txt 2>$out/check_$pid.err; echo "exit=$? (tier $tier, full check; native sweep flagged nothing the restricted runs could decide)" >> $out/check_$pid.txt)
-fi
-$if [ -n "$hits" ]; then
-  (cd $V && VERIF_ONLY="$hits" python3 check.py $pid --tier $tier > $out/check_$pid.txt 2>$out/check_$pid.err; echo "exit=$? (tier $tier, restricted to the harnesses the native sweep flagged: $hits)" >> $out/check_$pid.txt)
-  if ! grep -q "^VIOLATION" $out/check_$pid.txt && [ "$tier" = quick ]; then
-    # the flagged harnesses may belong to the thorough tier only (larger bounds, slow ones)
-    (cd $V && VERIF_ONLY="$hits" python3 check.py $pid --tier thorough > $out/check_${pid}_thorough.txt 2>$out/check_${pid}_thorough.err; echo "exit=$? (tier thorough, restricted to the harnesses the native sweep flagged: $hits)" >> $out/check_${pid}_thorough.txt)
-    if grep -q "^VIOLATION" $out/check_${pid}_thorough.txt; then cp $out/check_${pid}_thorough.txt $out/check_$pid.txt; fi
-  fi
-fi
-if [ -z "$hits" ] || { ! grep -q "^VIOLATION" $out/check_$pid.txt && grep -q "no obligation was generated" $out/check_$pid.txt; }; then
-  (cd $V && python3 check.py $pid --tier $tier > $out/check_$pid.txt 2>$out/check_$pid.err; echo "exit=$? (tier $tier, full check; native sweep flagged nothing the restricted runs could decide)" >> $out/check_$pid.txt)
-fi
-nif [ -n "$hits" ]; then
-  (cd $V && VERIF_ONLY="$hits" python3 check.py $pid --tier $tier > $out/check_$pid.txt 2>$out/check_$pid.err; echo "exit=$? (tier $tier, restricted to the harnesses the native sweep flagged: $hits)" >> $out/check_$pid.txt)
-  if ! grep -q "^VIOLATION" $out/check_$pid.txt && [ "$tier" = quick ]; then
-    # the flagged harnesses may belong to the thorough tier only (larger bounds, slow ones)
-    (cd $V && VERIF_ONLY="$hits" python3 check.py $pid --tier thorough > $out/check_${pid}_thorough.txt 2>$out/check_${pid}_thorough.err; echo "exit=$? (tier thorough, restricted to the harnesses the native sweep flagged: $hits)" >> $out/check_${pid}_thorough.txt)
-    if grep -q "^VIOLATION" $out/check_${pid}_thorough.txt; then cp $out/check_${pid}_thorough.txt $out/check_$pid.txt; fi
-  fi
-fi
-if [ -z "$hits" ] || { ! grep -q "^VIOLATION" $out/check_$pid.txt && grep -q "no obligation was generated" $out/check_$pid.txt; }; then
-  (cd $V && python3 check.py $pid --tier $tier > $out/check_$pid.txt 2>$out/check_$pid.err; echo "exit=$? (tier $tier, full check; native sweep flagged nothing the restricted runs could decide)" >> $out/check_$pid.txt)
-fi
-aif [ -n "$hits" ]; then
-  (cd $V && VERIF_ONLY="$hits" python3 check.py $pid --tier $tier > $out/check_$pid.txt 2>$out/check_$pid.err; echo "exit=$? (tier $tier, restricted to the harnesses the native sweep flagged: $hits)" >> $out/check_$pid.txt)
-  if ! grep -q "^VIOLATION" $out/check_$pid.txt && [ "$tier" = quick ]; then
-    # the flagged harnesses may belong to the thorough tier only (larger bounds, slow ones)
-    (cd $V && VERIF_ONLY="$hits" python3 check.py $pid --tier thorough > $out/check_${pid}_thorough.txt 2>$out/check_${pid}_thorough.err; echo "exit=$? (tier thorough, restricted to the harnesses the native sweep flagged: $hits)" >> $out/check_${pid}_thorough.txt)
-    if grep -q "^VIOLATION" $out/check_${pid}_thorough.txt; then cp $out/check_${pid}_thorough.txt $out/check_$pid.txt; fi
-  fi
-fi
-if [ -z "$hits" ] || { ! grep -q "^VIOLATION" $out/check_$pid.txt && grep -q "no obligation was generated" $out/check_$pid.txt; }; then
-  (cd $V && python3 check.py $pid --tier $tier > $out/check_$pid.txt 2>$out/check_$pid.err; echo "exit=$? (tier $tier, full check; native sweep flagged nothing the restricted runs could decide)" >> $out/check_$pid.txt)
-fi
-mif [ -n "$hits" ]; then
-  (cd $V && VERIF_ONLY="$hits" python3 check.py $pid --tier $tier > $out/check_$pid.txt 2>$out/check_$pid.err; echo "exit=$? (tier $tier, restricted to the harnesses the native sweep flagged: $hits)" >> $out/check_$pid.txt)
-  if ! grep -q "^VIOLATION" $out/check_$pid.txt && [ "$tier" = quick ]; then
-    # the flagged harnesses may belong to the thorough tier only (larger bounds, slow ones)
-    (cd $V && VERIF_ONLY="$hits" python3 check.py $pid --tier thorough > $out/check_${pid}_thorough.txt 2>$out/check_${pid}_thorough.err; echo "exit=$? (tier thorough, restricted to the harnesses the native sweep flagged: $hits)" >> $out/check_${pid}_thorough.txt)
-    if grep -q "^VIOLATION" $out/check_${pid}_thorough.txt; then cp $out/check_${pid}_thorough.txt $out/check_$pid.txt; fi
-  fi
-fi
-if [ -z "$hits" ] || { ! grep -q "^VIOLATION" $out/check_$pid.txt && grep -q "no obligation was generated" $out/check_$pid.txt; }; then
-  (cd $V && python3 check.py $pid --tier $tier > $out/check_$pid.txt 2>$out/check_$pid.err; echo "exit=$? (tier $tier, full check; native sweep flagged nothing the restricted runs could decide)" >> $out/check_$pid.txt)
-fi
-eif [ -n "$hits" ]; then
-  (cd $V && VERIF_ONLY="$hits" python3 check.py $pid --tier $tier > $out/check_$pid.txt 2>$out/check_$pid.err; echo "exit=$? (tier $tier, restricted to the harnesses the native sweep flagged: $hits)" >> $out/check_$pid.txt)
-  if ! grep -q "^VIOLATION" $out/check_$pid.txt && [ "$tier" = quick ]; then
-    # the flagged harnesses may belong to the thorough tier only (larger bounds, slow ones)
-    (cd $V && VERIF_ONLY="$hits" python3 check.py $pid --tier thorough > $out/check_${pid}_thorough.txt 2>$out/check_${pid}_thorough.err; echo "exit=$? (tier thorough, restricted to the harnesses the native sweep flagged: $hits)" >> $out/check_${pid}_thorough.txt)
-    if grep -q "^VIOLATION" $out/check_${pid}_thorough.txt; then cp $out/check_${pid}_thorough.txt $out/check_$pid.txt; fi
-  fi
-fi
-if [ -z "$hits" ] || { ! grep -q "^VIOLATION" $out/check_$pid.txt && grep -q "no obligation was generated" $out/check_$pid.txt; }; then
-  (cd $V && python3 check.py $pid --tier $tier > $out/check_$pid.txt 2>$out/check_$pid.err; echo "exit=$? (tier $tier, full check; native sweep flagged nothing the restricted runs could decide)" >> $out/check_$pid.txt)
-fi
-
-if [ -n "$hits" ]; then
-  (cd $V && VERIF_ONLY="$hits" python3 check.py $pid --tier $tier > $out/check_$pid.txt 2>$out/check_$pid.err; echo "exit=$? (tier $tier, restricted to the harnesses the native sweep flagged: $hits)" >> $out/check_$pid.txt)
-  if ! grep -q "^VIOLATION" $out/check_$pid.txt && [ "$tier" = quick ]; then
-    # the flagged harnesses may belong to the thorough tier only (larger bounds, slow ones)
-    (cd $V && VERIF_ONLY="$hits" python3 check.py $pid --tier thorough > $out/check_${pid}_thorough.txt 2>$out/check_${pid}_thorough.err; echo "exit=$? (tier thorough, restricted to the harnesses the native sweep flagged: $hits)" >> $out/check_${pid}_thorough.txt)
-    if grep -q "^VIOLATION" $out/check_${pid}_thorough.txt; then cp $out/check_${pid}_thorough.txt $out/check_$pid.txt; fi
-  fi
-fi
-if [ -z "$hits" ] || { ! grep -q "^VIOLATION" $out/check_$pid.txt && grep -q "no obligation was generated" $out/check_$pid.txt; }; then
-  (cd $V && python3 check.py $pid --tier $tier > $out/check_$pid.txt 2>$out/check_$pid.err; echo "exit=$? (tier $tier, full check; native sweep flagged nothing the restricted runs could decide)" >> $out/check_$pid.txt)
-fi
-mif [ -n "$hits" ]; then
-  (cd $V && VERIF_ONLY="$hits" python3 check.py $pid --tier $tier > $out/check_$pid.txt 2>$out/check_$pid.err; echo "exit=$? (tier $tier, restricted to the harnesses the native sweep flagged: $hits)" >> $out/check_$pid.txt)
-  if ! grep -q "^VIOLATION" $out/check_$pid.txt && [ "$tier" = quick ]; then
-    # the flagged harnesses may belong to the thorough tier only (larger bounds, slow ones)
-    (cd $V && VERIF_ONLY="$hits" python3 check.py $pid --tier thorough > $out/check_${pid}_thorough.txt 2>$out/check_${pid}_thorough.err; echo "exit=$? (tier thorough, restricted to the harnesses the native sweep flagged: $hits)" >> $out/check_${pid}_thorough.txt)
-    if grep -q "^VIOLATION" $out/check_${pid}_thorough.txt; then cp $out/check_${pid}_thorough.txt $out/check_$pid.txt; fi
-  fi
-fi
-if [ -z "$hits" ] || { ! grep -q "^VIOLATION" $out/check_$pid.txt && grep -q "no obligation was generated" $out/check_$pid.txt; }; then
-  (cd $V && python3 check.py $pid --tier $tier > $out/check_$pid.txt 2>$out/check_$pid.err; echo "exit=$? (tier $tier, full check; native sweep flagged nothing the restricted runs could decide)" >> $out/check_$pid.txt)
-fi
-kif [ -n "$hits" ]; then
-  (cd $V && VERIF_ONLY="$hits" python3 check.py $pid --tier $tier > $out/check_$pid.txt 2>$out/check_$pid.err; echo "exit=$? (tier $tier, restricted to the harnesses the native sweep flagged: $hits)" >> $out/check_$pid.txt)
-  if ! grep -q "^VIOLATION" $out/check_$pid.txt && [ "$tier" = quick ]; then
-    # the flagged harnesses may belong to the thorough tier only (larger bounds, slow ones)
-    (cd $V && VERIF_ONLY="$hits" python3 check.py $pid --tier thorough > $out/check_${pid}_thorough.txt 2>$out/check_${pid}_thorough.err; echo "exit=$? (tier thorough, restricted to the harnesses the native sweep flagged: $hits)" >> $out/check_${pid}_thorough.txt)
-    if grep -q "^VIOLATION" $out/check_${pid}_thorough.txt; then cp $out/check_${pid}_thorough.txt $out/check_$pid.txt; fi
-  fi
-fi
-if [ -z "$hits" ] || { ! grep -q "^VIOLATION" $out/check_$pid.txt && grep -q "no obligation was generated" $out/check_$pid.txt; }; then
-  (cd $V && python3 check.py $pid --tier $tier > $out/check_$pid.txt 2>$out/check_$pid.err; echo "exit=$? (tier $tier, full check; native sweep flagged nothing the restricted runs could decide)" >> $out/check_$pid.txt)
-fi
-dif [ -n "$hits" ]; then
-  (cd $V && VERIF_ONLY="$hits" python3 check.py $pid --tier $tier > $out/check_$pid.txt 2>$out/check_$pid.err; echo "exit=$? (tier $tier, restricted to the harnesses the native sweep flagged: $hits)" >> $out/check_$pid.txt)
-  if ! grep -q "^VIOLATION" $out/check_$pid.txt && [ "$tier" = quick ]; then
-    # the flagged harnesses may belong to the thorough tier only (larger bounds, slow ones)
-    (cd $V && VERIF_ONLY="$hits" python3 check.py $pid --tier thorough > $out/check_${pid}_thorough.txt 2>$out/check_${pid}_thorough.err; echo "exit=$? (tier thorough, restricted to the harnesses the native sweep flagged: $hits)" >> $out/check_${pid}_thorough.txt)
-    if grep -q "^VIOLATION" $out/check_${pid}_thorough.txt; then cp $out/check_${pid}_thorough.txt $out/check_$pid.txt; fi
-  fi
-fi
-if [ -z "$hits" ] || { ! grep -q "^VIOLATION" $out/check_$pid.txt && grep -q "no obligation was generated" $out/check_$pid.txt; }; then
-  (cd $V && python3 check.py $pid --tier $tier > $out/check_$pid.txt 2>$out/check_$pid.err; echo "exit=$? (tier $tier, full check; native sweep flagged nothing the restricted runs could decide)" >> $out/check_$pid.txt)
-fi
-iif [ -n "$hits" ]; then
-  (cd $V && VERIF_ONLY="$hits" python3 check.py $pid --tier $tier > $out/check_$pid.txt 2>$out/check_$pid.err; echo "exit=$? (tier $tier, restricted to the harnesses the native sweep flagged: $hits)" >> $out/check_$pid.txt)
-  if ! grep -q "^VIOLATION" $out/check_$pid.txt && [ "$tier" = quick ]; then
-    # the flagged harnesses may belong to the thorough tier only (larger bounds, slow ones)
-    (cd $V && VERIF_ONLY="$hits" python3 check.py $pid --tier thorough > $out/check_${pid}_thorough.txt 2>$out/check_${pid}_thorough.err; echo "exit=$? (tier thorough, restricted to the harnesses the native sweep flagged: $hits)" >> $out/check_${pid}_thorough.txt)
-    if grep -q "^VIOLATION" $out/check_${pid}_thorough.txt; then cp $out/check_${pid}_thorough.txt $out/check_$pid.txt; fi
-  fi
-fi
-if [ -z "$hits" ] || { ! grep -q "^VIOLATION" $out/check_$pid.txt && grep -q "no obligation was generated" $out/check_$pid.txt; }; then
-  (cd $V && python3 check.py $pid --tier $tier > $out/check_$pid.txt 2>$out/check_$pid.err; echo "exit=$? (tier $tier, full check; native sweep flagged nothing the restricted runs could decide)" >> $out/check_$pid.txt)
-fi
-rif [ -n "$hits" ]; then
-  (cd $V && VERIF_ONLY="$hits" python3 check.py $pid --tier $tier > $out/check_$pid.txt 2>$out/check_$pid.err; echo "exit=$? (tier $tier, restricted to the harnesses the native sweep flagged: $hits)" >> $out/check_$pid.txt)
-  if ! grep -q "^VIOLATION" $out/check_$pid.txt && [ "$tier" = quick ]; then
-    # the flagged harnesses may belong to the thorough tier only (larger bounds, slow ones)
-    (cd $V && VERIF_ONLY="$hits" python3 check.py $pid --tier thorough > $out/check_${pid}_thorough.txt 2>$out/check_${pid}_thorough.err; echo "exit=$? (tier thorough, restricted to the harnesses the native sweep flagged: $hits)" >> $out/check_${pid}_thorough.txt)
-    if grep -q "^VIOLATION" $out/check_${pid}_thorough.txt; then cp $out/check_${pid}_thorough.txt $out/check_$pid.txt; fi
-  fi
-fi
-if [ -z "$hits" ] || { ! grep -q "^VIOLATION" $out/check_$pid.txt && grep -q "no obligation was generated" $out/check_$pid.txt; }; then
-  (cd $V && python3 check.py $pid --tier $tier > $out/check_$pid.txt 2>$out/check_$pid.err; echo "exit=$? (tier $tier, full check; native sweep flagged nothing the restricted runs could decide)" >> $out/check_$pid.txt)
-fi
- if [ -n "$hits" ]; then
-  (cd $V && VERIF_ONLY="$hits" python3 check.py $pid --tier $tier > $out/check_$pid.txt 2>$out/check_$pid.err; echo "exit=$? (tier $tier, restricted to the harnesses the native sweep flagged: $hits)" >> $out/check_$pid.txt)
-  if ! grep -q "^VIOLATION" $out/check_$pid.txt && [ "$tier" = quick ]; then
-    # the flagged harnesses may belong to the thorough tier only (larger bounds, slow ones)
-    (cd $V && VERIF_ONLY="$hits" python3 check.py $pid --tier thorough > $out/check_${pid}_thorough.txt 2>$out/check_${pid}_thorough.err; echo "exit=$? (tier thorough, restricted to the harnesses the native sweep flagged: $hits)" >> $out/check_${pid}_thorough.txt)
-    if grep -q "^VIOLATION" $out/check_${pid}_thorough.txt; then cp $out/check_${pid}_thorough.txt $out/check_$pid.txt; fi
-  fi
-fi
-if [ -z "$hits" ] || { ! grep -q "^VIOLATION" $out/check_$pid.txt && grep -q "no obligation was generated" $out/check_$pid.txt; }; then
-  (cd $V && python3 check.py $pid --tier $tier > $out/check_$pid.txt 2>$out/check_$pid.err; echo "exit=$? (tier $tier, full check; native sweep flagged nothing the restricted runs could decide)" >> $out/check_$pid.txt)
-fi
--if [ -n "$hits" ]; then
-  (cd $V && VERIF_ONLY="$hits" python3 check.py $pid --tier $tier > $out/check_$pid.txt 2>$out/check_$pid.err; echo "exit=$? (tier $tier, restricted to the harnesses the native sweep flagged: $hits)" >> $out/check_$pid.txt)
-  if ! grep -q "^VIOLATION" $out/check_$pid.txt && [ "$tier" = quick ]; then
-    # the flagged harnesses may belong to the thorough tier only (larger bounds, slow ones)
-    (cd $V && VERIF_ONLY="$hits" python3 check.py $pid --tier thorough > $out/check_${pid}_thorough.txt 2>$out/check_${pid}_thorough.err; echo "exit=$? (tier thorough, restricted to the harnesses the native sweep flagged: $hits)" >> $out/check_${pid}_thorough.txt)
-    if grep -q "^VIOLATION" $out/check_${pid}_thorough.txt; then cp $out/check_${pid}_thorough.txt $out/check_$pid.txt; fi
-  fi
-fi
-if [ -z "$hits" ] || { ! grep -q "^VIOLATION" $out/check_$pid.txt && grep -q "no obligation was generated" $out/check_$pid.txt; }; then
-  (cd $V && python3 check.py $pid --tier $tier > $out/check_$pid.txt 2>$out/check_$pid.err; echo "exit=$? (tier $tier, full check; native sweep flagged nothing the restricted runs could decide)" >> $out/check_$pid.txt)
-fi
-pif [ -n "$hits" ]; then
-  (cd $V && VERIF_ONLY="$hits" python3 check.py $pid --tier $tier > $out/check_$pid.txt 2>$out/check_$pid.err; echo "exit=$? (tier $tier, restricted to the harnesses the native sweep flagged: $hits)" >> $out/check_$pid.txt)
-  if ! grep -q "^VIOLATION" $out/check_$pid.txt && [ "$tier" = quick ]; then
-    # the flagged harnesses may belong to the thorough tier only (larger bounds, slow ones)
-    (cd $V && VERIF_ONLY="$hits" python3 check.py $pid --tier thorough > $out/check_${pid}_thorough.txt 2>$out/check_${pid}_thorough.err; echo "exit=$? (tier thorough, restricted to the harnesses the native sweep flagged: $hits)" >> $out/check_${pid}_thorough.txt)
-    if grep -q "^VIOLATION" $out/check_${pid}_thorough.txt; then cp $out/check_${pid}_thorough.txt $out/check_$pid.txt; fi
-  fi
-fi
-if [ -z "$hits" ] || { ! grep -q "^VIOLATION" $out/check_$pid.txt && grep -q "no obligation was generated" $out/check_$pid.txt; }; then
-  (cd $V && python3 check.py $pid --tier $tier > $out/check_$pid.txt 2>$out/check_$pid.err; echo "exit=$? (tier $tier, full check; native sweep flagged nothing the restricted runs could decide)" >> $out/check_$pid.txt)
-fi
- if [ -n "$hits" ]; then
-  (cd $V && VERIF_ONLY="$hits" python3 check.py $pid --tier $tier > $out/check_$pid.txt 2>$out/check_$pid.err; echo "exit=$? (tier $tier, restricted to the harnesses the native sweep flagged: $hits)" >> $out/check_$pid.txt)
-  if ! grep -q "^VIOLATION" $out/check_$pid.txt && [ "$tier" = quick ]; then
-    # the flagged harnesses may belong to the thorough tier only (larger bounds, slow ones)
-    (cd $V && VERIF_ONLY="$hits" python3 check.py $pid --tier thorough > $out/check_${pid}_thorough.txt 2>$out/check_${pid}_thorough.err; echo "exit=$? (tier thorough, restricted to the harnesses the native sweep flagged: $hits)" >> $out/check_${pid}_thorough.txt)
-    if grep -q "^VIOLATION" $out/check_${pid}_thorough.txt; then cp $out/check_${pid}_thorough.txt $out/check_$pid.txt; fi
-  fi
-fi
-if [ -z "$hits" ] || { ! grep -q "^VIOLATION" $out/check_$pid.txt && grep -q "no obligation was generated" $out/check_$pid.txt; }; then
-  (cd $V && python3 check.py $pid --tier $tier > $out/check_$pid.txt 2>$out/check_$pid.err; echo "exit=$? (tier $tier, full check; native sweep flagged nothing the restricted runs could decide)" >> $out/check_$pid.txt)
-fi
-/if [ -n "$hits" ]; then
-  (cd $V && VERIF_ONLY="$hits" python3 check.py $pid --tier $tier > $out/check_$pid.txt 2>$out/check_$pid.err; echo "exit=$? (tier $tier, restricted to the harnesses the native sweep flagged: $hits)" >> $out/check_$pid.txt)
-  if ! grep -q "^VIOLATION" $out/check_$pid.txt && [ "$tier" = quick ]; then
-    # the flagged harnesses may belong to the thorough tier only (larger bounds, slow ones)
-    (cd $V && VERIF_ONLY="$hits" python3 check.py $pid --tier thorough > $out/check_${pid}_thorough.txt 2>$out/check_${pid}_thorough.err; echo "exit=$? (tier thorough, restricted to the harnesses the native sweep flagged: $hits)" >> $out/check_${pid}_thorough.txt)
-    if grep -q "^VIOLATION" $out/check_${pid}_thorough.txt; then cp $out/check_${pid}_thorough.txt $out/check_$pid.txt; fi
-  fi
-fi
-if [ -z "$hits" ] || { ! grep -q "^VIOLATION" $out/check_$pid.txt && grep -q "no obligation was generated" $out/check_$pid.txt; }; then
-  (cd $V && python3 check.py $pid --tier $tier > $out/check_$pid.txt 2>$out/check_$pid.err; echo "exit=$? (tier $tier, full check; native sweep flagged nothing the restricted runs could decide)" >> $out/check_$pid.txt)
-fi
-tif [ -n "$hits" ]; then
-  (cd $V && VERIF_ONLY="$hits" python3 check.py $pid --tier $tier > $out/check_$pid.txt 2>$out/check_$pid.err; echo "exit=$? (tier $tier, restricted to the harnesses the native sweep flagged: $hits)" >> $out/check_$pid.txt)
-  if ! grep -q "^VIOLATION" $out/check_$pid.txt && [ "$tier" = quick ]; then
-    # the flagged harnesses may belong to the thorough tier only (larger bounds, slow ones)
-    (cd $V && VERIF_ONLY="$hits" python3 check.py $pid --tier thorough > $out/check_${pid}_thorough.txt 2>$out/check_${pid}_thorough.err; echo "exit=$? (tier thorough, restricted to the harnesses the native sweep flagged: $hits)" >> $out/check_${pid}_thorough.txt)
-    if grep -q "^VIOLATION" $out/check_${pid}_thorough.txt; then cp $out/check_${pid}_thorough.txt $out/check_$pid.txt; fi
-  fi
-fi
-if [ -z "$hits" ] || { ! grep -q "^VIOLATION" $out/check_$pid.txt && grep -q "no obligation was generated" $out/check_$pid.txt; }; then
-  (cd $V && python3 check.py $pid --tier $tier > $out/check_$pid.txt 2>$out/check_$pid.err; echo "exit=$? (tier $tier, full check; native sweep flagged nothing the restricted runs could decide)" >> $out/check_$pid.txt)
-fi
-mif [ -n "$hits" ]; then
-  (cd $V && VERIF_ONLY="$hits" python3 check.py $pid --tier $tier > $out/check_$pid.txt 2>$out/check_$pid.err; echo "exit=$? (tier $tier, restricted to the harnesses the native sweep flagged: $hits)" >> $out/check_$pid.txt)
-  if ! grep -q "^VIOLATION" $out/check_$pid.txt && [ "$tier" = quick ]; then
-    # the flagged harnesses may belong to the thorough tier only (larger bounds, slow ones)
-    (cd $V && VERIF_ONLY="$hits" python3 check.py $pid --tier thorough > $out/check_${pid}_thorough.txt 2>$out/check_${pid}_thorough.err; echo "exit=$? (tier thorough, restricted to the harnesses the native sweep flagged: $hits)" >> $out/check_${pid}_thorough.txt)
-    if grep -q "^VIOLATION" $out/check_${pid}_thorough.txt; then cp $out/check_${pid}_thorough.txt $out/check_$pid.txt; fi
-  fi
-fi
-if [ -z "$hits" ] || { ! grep -q "^VIOLATION" $out/check_$pid.txt && grep -q "no obligation was generated" $out/check_$pid.txt; }; then
-  (cd $V && python3 check.py $pid --tier $tier > $out/check_$pid.txt 2>$out/check_$pid.err; echo "exit=$? (tier $tier, full check; native sweep flagged nothing the restricted runs could decide)" >> $out/check_$pid.txt)
-fi
-pif [ -n "$hits" ]; then
-  (cd $V && VERIF_ONLY="$hits" python3 check.py $pid --tier $tier > $out/check_$pid.txt 2>$out/check_$pid.err; echo "exit=$? (tier $tier, restricted to the harnesses the native sweep flagged: $hits)" >> $out/check_$pid.txt)
-  if ! grep -q "^VIOLATION" $out/check_$pid.txt && [ "$tier" = quick ]; then
-    # the flagged harnesses may belong to the thorough tier only (larger bounds, slow ones)
-    (cd $V && VERIF_ONLY="$hits" python3 check.py $pid --tier thorough > $out/check_${pid}_thorough.txt 2>$out/check_${pid}_thorough.err; echo "exit=$? (tier thorough, restricted to the harnesses the native sweep flagged: $hits)" >> $out/check_${pid}_thorough.txt)
-    if grep -q "^VIOLATION" $out/check_${pid}_thorough.txt; then cp $out/check_${pid}_thorough.txt $out/check_$pid.txt; fi
-  fi
-fi
-if [ -z "$hits" ] || { ! grep -q "^VIOLATION" $out/check_$pid.txt && grep -q "no obligation was generated" $out/check_$pid.txt; }; then
-  (cd $V && python3 check.py $pid --tier $tier > $out/check_$pid.txt 2>$out/check_$pid.err; echo "exit=$? (tier $tier, full check; native sweep flagged nothing the restricted runs could decide)" >> $out/check_$pid.txt)
-fi
-/if [ -n "$hits" ]; then
-  (cd $V && VERIF_ONLY="$hits" python3 check.py $pid --tier $tier > $out/check_$pid.txt 2>$out/check_$pid.err; echo "exit=$? (tier $tier, restricted to the harnesses the native sweep flagged: $hits)" >> $out/check_$pid.txt)
-  if ! grep -q "^VIOLATION" $out/check_$pid.txt && [ "$tier" = quick ]; then
-    # the flagged harnesses may belong to the thorough tier only (larger bounds, slow ones)
-    (cd $V && VERIF_ONLY="$hits" python3 check.py $pid --tier thorough > $out/check_${pid}_thorough.txt 2>$out/check_${pid}_thorough.err; echo "exit=$? (tier thorough, restricted to the harnesses the native sweep flagged: $hits)" >> $out/check_${pid}_thorough.txt)
-    if grep -q "^VIOLATION" $out/check_${pid}_thorough.txt; then cp $out/check_${pid}_thorough.txt $out/check_$pid.txt; fi
-  fi
-fi
-if [ -z "$hits" ] || { ! grep -q "^VIOLATION" $out/check_$pid.txt && grep -q "no obligation was generated" $out/check_$pid.txt; }; then
-  (cd $V && python3 check.py $pid --tier $tier > $out/check_$pid.txt 2>$out/check_$pid.err; echo "exit=$? (tier $tier, full check; native sweep flagged nothing the restricted runs could decide)" >> $out/check_$pid.txt)
-fi
-sif [ -n "$hits" ]; then
-  (cd $V && VERIF_ONLY="$hits" python3 check.py $pid --tier $tier > $out/check_$pid.txt 2>$out/check_$pid.err; echo "exit=$? (tier $tier, restricted to the harnesses the native sweep flagged: $hits)" >> $out/check_$pid.txt)
-  if ! grep -q "^VIOLATION" $out/check_$pid.txt && [ "$tier" = quick ]; then
-    # the flagged harnesses may belong to the thorough tier only (larger bounds, slow ones)
-    (cd $V && VERIF_ONLY="$hits" python3 check.py $pid --tier thorough > $out/check_${pid}_thorough.txt 2>$out/check_${pid}_thorough.err; echo "exit=$? (tier thorough, restricted to the harnesses the native sweep flagged: $hits)" >> $out/check_${pid}_thorough.txt)
-    if grep -q "^VIOLATION" $out/check_${pid}_thorough.txt; then cp $out/check_${pid}_thorough.txt $out/check_$pid.txt; fi
-  fi
-fi
-if [ -z "$hits" ] || { ! grep -q "^VIOLATION" $out/check_$pid.txt && grep -q "no obligation was generated" $out/check_$pid.txt; }; then
-  (cd $V && python3 check.py $pid --tier $tier > $out/check_$pid.txt 2>$out/check_$pid.err; echo "exit=$? (tier $tier, full check; native sweep flagged nothing the restricted runs could decide)" >> $out/check_$pid.txt)
-fi
-eif [ -n "$hits" ]; then
-  (cd $V && VERIF_ONLY="$hits" python3 check.py $pid --tier $tier > $out/check_$pid.txt 2>$out/check_$pid.err; echo "exit=$? (tier $tier, restricted to the harnesses the native sweep flagged: $hits)" >> $out/check_$pid.txt)
-  if ! grep -q "^VIOLATION" $out/check_$pid.txt && [ "$tier" = quick ]; then
-    # the flagged harnesses may belong to the thorough tier only (larger bounds, slow ones)
-    (cd $V && VERIF_ONLY="$hits" python3 check.py $pid --tier thorough > $out/check_${pid}_thorough.txt 2>$out/check_${pid}_thorough.err; echo "exit=$? (tier thorough, restricted to the harnesses the native sweep flagged: $hits)" >> $out/check_${pid}_thorough.txt)
-    if grep -q "^VIOLATION" $out/check_${pid}_thorough.txt; then cp $out/check_${pid}_thorough.txt $out/check_$pid.txt; fi
-  fi
-fi
-if [ -z "$hits" ] || { ! grep -q "^VIOLATION" $out/check_$pid.txt && grep -q "no obligation was generated" $out/check_$pid.txt; }; then
-  (cd $V && python3 check.py $pid --tier $tier > $out/check_$pid.txt 2>$out/check_$pid.err; echo "exit=$? (tier $tier, full check; native sweep flagged nothing the restricted runs could decide)" >> $out/check_$pid.txt)
-fi
-eif [ -n "$hits" ]; then
-  (cd $V && VERIF_ONLY="$hits" python3 check.py $pid --tier $tier > $out/check_$pid.txt 2>$out/check_$pid.err; echo "exit=$? (tier $tier, restricted to the harnesses the native sweep flagged: $hits)" >> $out/check_$pid.txt)
-  if ! grep -q "^VIOLATION" $out/check_$pid.txt && [ "$tier" = quick ]; then
-    # the flagged harnesses may belong to the thorough tier only (larger bounds, slow ones)
-    (cd $V && VERIF_ONLY="$hits" python3 check.py $pid --tier thorough > $out/check_${pid}_thorough.txt 2>$out/check_${pid}_thorough.err; echo "exit=$? (tier thorough, restricted to the harnesses the native sweep flagged: $hits)" >> $out/check_${pid}_thorough.txt)
-    if grep -q "^VIOLATION" $out/check_${pid}_thorough.txt; then cp $out/check_${pid}_thorough.txt $out/check_$pid.txt; fi
-  fi
-fi
-if [ -z "$hits" ] || { ! grep -q "^VIOLATION" $out/check_$pid.txt && grep -q "no obligation was generated" $out/check_$pid.txt; }; then
-  (cd $V && python3 check.py $pid --tier $tier > $out/check_$pid.txt 2>$out/check_$pid.err; echo "exit=$? (tier $tier, full check; native sweep flagged nothing the restricted runs could decide)" >> $out/check_$pid.txt)
-fi
-dif [ -n "$hits" ]; then
-  (cd $V && VERIF_ONLY="$hits" python3 check.py $pid --tier $tier > $out/check_$pid.txt 2>$out/check_$pid.err; echo "exit=$? (tier $tier, restricted to the harnesses the native sweep flagged: $hits)" >> $out/check_$pid.txt)
-  if ! grep -q "^VIOLATION" $out/check_$pid.txt && [ "$tier" = quick ]; then
-    # the flagged harnesses may belong to the thorough tier only (larger bounds, slow ones)
-    (cd $V && VERIF_ONLY="$hits" python3 check.py $pid --tier thorough > $out/check_${pid}_thorough.txt 2>$out/check_${pid}_thorough.err; echo "exit=$? (tier thorough, restricted to the harnesses the native sweep flagged: $hits)" >> $out/check_${pid}_thorough.txt)
-    if grep -q "^VIOLATION" $out/check_${pid}_thorough.txt; then cp $out/check_${pid}_thorough.txt $out/check_$pid.txt; fi
-  fi
-fi
-if [ -z "$hits" ] || { ! grep -q "^VIOLATION" $out/check_$pid.txt && grep -q "no obligation was generated" $out/check_$pid.txt; }; then
-  (cd $V && python3 check.py $pid --tier $tier > $out/check_$pid.txt 2>$out/check_$pid.err; echo "exit=$? (tier $tier, full check; native sweep flagged nothing the restricted runs could decide)" >> $out/check_$pid.txt)
-fi
-rif [ -n "$hits" ]; then
-  (cd $V && VERIF_ONLY="$hits" python3 check.py $pid --tier $tier > $out/check_$pid.txt 2>$out/check_$pid.err; echo "exit=$? (tier $tier, restricted to the harnesses the native sweep flagged: $hits)" >> $out/check_$pid.txt)
-  if ! grep -q "^VIOLATION" $out/check_$pid.txt && [ "$tier" = quick ]; then
-    # the flagged harnesses may belong to the thorough tier only (larger bounds, slow ones)
-    (cd $V && VERIF_ONLY="$hits" python3 check.py $pid --tier thorough > $out/check_${pid}_thorough.txt 2>$out/check_${pid}_thorough.err; echo "exit=$? (tier thorough, restricted to the harnesses the native sweep flagged: $hits)" >> $out/check_${pid}_thorough.txt)
-    if grep -q "^VIOLATION" $out/check_${pid}_thorough.txt; then cp $out/check_${pid}_thorough.txt $out/check_$pid.txt; fi
-  fi
-fi
-if [ -z "$hits" ] || { ! grep -q "^VIOLATION" $out/check_$pid.txt && grep -q "no obligation was generated" $out/check_$pid.txt; }; then
-  (cd $V && python3 check.py $pid --tier $tier > $out/check_$pid.txt 2>$out/check_$pid.err; echo "exit=$? (tier $tier, full check; native sweep flagged nothing the restricted runs could decide)" >> $out/check_$pid.txt)
-fi
-uif [ -n "$hits" ]; then
-  (cd $V && VERIF_ONLY="$hits" python3 check.py $pid --tier $tier > $out/check_$pid.txt 2>$out/check_$pid.err; echo "exit=$? (tier $tier, restricted to the harnesses the native sweep flagged: $hits)" >> $out/check_$pid.txt)
-  if ! grep -q "^VIOLATION" $out/check_$pid.txt && [ "$tier" = quick ]; then
-    # the flagged harnesses may belong to the thorough tier only (larger bounds, slow ones)
-    (cd $V && VERIF_ONLY="$hits" python3 check.py $pid --tier thorough > $out/check_${pid}_thorough.txt 2>$out/check_${pid}_thorough.err; echo "exit=$? (tier thorough, restricted to the harnesses the native sweep flagged: $hits)" >> $out/check_${pid}_thorough.txt)
-    if grep -q "^VIOLATION" $out/check_${pid}_thorough.txt; then cp $out/check_${pid}_thorough.txt $out/check_$pid.txt; fi
-  fi
-fi
-if [ -z "$hits" ] || { ! grep -q "^VIOLATION" $out/check_$pid.txt && grep -q "no obligation was generated" $out/check_$pid.txt; }; then
-  (cd $V && python3 check.py $pid --tier $tier > $out/check_$pid.txt 2>$out/check_$pid.err; echo "exit=$? (tier $tier, full check; native sweep flagged nothing the restricted runs could decide)" >> $out/check_$pid.txt)
-fi
-nif [ -n "$hits" ]; then
-  (cd $V && VERIF_ONLY="$hits" python3 check.py $pid --tier $tier > $out/check_$pid.txt 2>$out/check_$pid.err; echo "exit=$? (tier $tier, restricted to the harnesses the native sweep flagged: $hits)" >> $out/check_$pid.txt)
-  if ! grep -q "^VIOLATION" $out/check_$pid.txt && [ "$tier" = quick ]; then
-    # the flagged harnesses may belong to the thorough tier only (larger bounds, slow ones)
-    (cd $V && VERIF_ONLY="$hits" python3 check.py $pid --tier thorough > $out/check_${pid}_thorough.txt 2>$out/check_${pid}_thorough.err; echo "exit=$? (tier thorough, restricted to the harnesses the native sweep flagged: $hits)" >> $out/check_${pid}_thorough.txt)
-    if grep -q "^VIOLATION" $out/check_${pid}_thorough.txt; then cp $out/check_${pid}_thorough.txt $out/check_$pid.txt; fi
-  fi
-fi
-if [ -z "$hits" ] || { ! grep -q "^VIOLATION" $out/check_$pid.txt && grep -q "no obligation was generated" $out/check_$pid.txt; }; then
-  (cd $V && python3 check.py $pid --tier $tier > $out/check_$pid.txt 2>$out/check_$pid.err; echo "exit=$? (tier $tier, full check; native sweep flagged nothing the restricted runs could decide)" >> $out/check_$pid.txt)
-fi
-
-if [ -n "$hits" ]; then
-  (cd $V && VERIF_ONLY="$hits" python3 check.py $pid --tier $tier > $out/check_$pid.txt 2>$out/check_$pid.err; echo "exit=$? (tier $tier, restricted to the harnesses the native sweep flagged: $hits)" >> $out/check_$pid.txt)
-  if ! grep -q "^VIOLATION" $out/check_$pid.txt && [ "$tier" = quick ]; then
-    # the flagged harnesses may belong to the thorough tier only (larger bounds, slow ones)
-    (cd $V && VERIF_ONLY="$hits" python3 check.py $pid --tier thorough > $out/check_${pid}_thorough.txt 2>$out/check_${pid}_thorough.err; echo "exit=$? (tier thorough, restricted to the harnesses the native sweep flagged: $hits)" >> $out/check_${pid}_thorough.txt)
-    if grep -q "^VIOLATION" $out/check_${pid}_thorough.txt; then cp $out/check_${pid}_thorough.txt $out/check_$pid.txt; fi
-  fi
-fi
-if [ -z "$hits" ] || { ! grep -q "^VIOLATION" $out/check_$pid.txt && grep -q "no obligation was generated" $out/check_$pid.txt; }; then
-  (cd $V && python3 check.py $pid --tier $tier > $out/check_$pid.txt 2>$out/check_$pid.err; echo "exit=$? (tier $tier, full check; native sweep flagged nothing the restricted runs could decide)" >> $out/check_$pid.txt)
-fi
-gif [ -n "$hits" ]; then
-  (cd $V && VERIF_ONLY="$hits" python3 check.py $pid --tier $tier > $out/check_$pid.txt 2>$out/check_$pid.err; echo "exit=$? (tier $tier, restricted to the harnesses the native sweep flagged: $hits)" >> $out/check_$pid.txt)
-  if ! grep -q "^VIOLATION" $out/check_$pid.txt && [ "$tier" = quick ]; then
-    # the flagged harnesses may belong to the thorough tier only (larger bounds, slow ones)
-    (cd $V && VERIF_ONLY="$hits" python3 check.py $pid --tier thorough > $out/check_${pid}_thorough.txt 2>$out/check_${pid}_thorough.err; echo "exit=$? (tier thorough, restricted to the harnesses the native sweep flagged: $hits)" >> $out/check_${pid}_thorough.txt)
-    if grep -q "^VIOLATION" $out/check_${pid}_thorough.txt; then cp $out/check_${pid}_thorough.txt $out/check_$pid.txt; fi
-  fi
-fi
-if [ -z "$hits" ] || { ! grep -q "^VIOLATION" $out/check_$pid.txt && grep -q "no obligation was generated" $out/check_$pid.txt; }; then
-  (cd $V && python3 check.py $pid --tier $tier > $out/check_$pid.txt 2>$out/check_$pid.err; echo "exit=$? (tier $tier, full check; native sweep flagged nothing the restricted runs could decide)" >> $out/check_$pid.txt)
-fi
-iif [ -n "$hits" ]; then
-  (cd $V && VERIF_ONLY="$hits" python3 check.py $pid --tier $tier > $out/check_$pid.txt 2>$out/check_$pid.err; echo "exit=$? (tier $tier, restricted to the harnesses the native sweep flagged: $hits)" >> $out/check_$pid.txt)
-  if ! grep -q "^VIOLATION" $out/check_$pid.txt && [ "$tier" = quick ]; then
-    # the flagged harnesses may belong to the thorough tier only (larger bounds, slow ones)
-    (cd $V && VERIF_ONLY="$hits" python3 check.py $pid --tier thorough > $out/check_${pid}_thorough.txt 2>$out/check_${pid}_thorough.err; echo "exit=$? (tier thorough, restricted to the harnesses the native sweep flagged: $hits)" >> $out/check_${pid}_thorough.txt)
-    if grep -q "^VIOLATION" $out/check_${pid}_thorough.txt; then cp $out/check_${pid}_thorough.txt $out/check_$pid.txt; fi
-  fi
-fi
-if [ -z "$hits" ] || { ! grep -q "^VIOLATION" $out/check_$pid.txt && grep -q "no obligation was generated" $out/check_$pid.txt; }; then
-  (cd $V && python3 check.py $pid --tier $tier > $out/check_$pid.txt 2>$out/check_$pid.err; echo "exit=$? (tier $tier, full check; native sweep flagged nothing the restricted runs could decide)" >> $out/check_$pid.txt)
-fi
-tif [ -n "$hits" ]; then
-  (cd $V && VERIF_ONLY="$hits" python3 check.py $pid --tier $tier > $out/check_$pid.txt 2>$out/check_$pid.err; echo "exit=$? (tier $tier, restricted to the harnesses the native sweep flagged: $hits)" >> $out/check_$pid.txt)
-  if ! grep -q "^VIOLATION" $out/check_$pid.txt && [ "$tier" = quick ]; then
-    # the flagged harnesses may belong to the thorough tier only (larger bounds, slow ones)
-    (cd $V && VERIF_ONLY="$hits" python3 check.py $pid --tier thorough > $out/check_${pid}_thorough.txt 2>$out/check_${pid}_thorough.err; echo "exit=$? (tier thorough, restricted to the harnesses the native sweep flagged: $hits)" >> $out/check_${pid}_thorough.txt)
-    if grep -q "^VIOLATION" $out/check_${pid}_thorough.txt; then cp $out/check_${pid}_thorough.txt $out/check_$pid.txt; fi
-  fi
-fi
-if [ -z "$hits" ] || { ! grep -q "^VIOLATION" $out/check_$pid.txt && grep -q "no obligation was generated" $out/check_$pid.txt; }; then
-  (cd $V && python3 check.py $pid --tier $tier > $out/check_$pid.txt 2>$out/check_$pid.err; echo "exit=$? (tier $tier, full check; native sweep flagged nothing the restricted runs could decide)" >> $out/check_$pid.txt)
-fi
- if [ -n "$hits" ]; then
-  (cd $V && VERIF_ONLY="$hits" python3 check.py $pid --tier $tier > $out/check_$pid.txt 2>$out/check_$pid.err; echo "exit=$? (tier $tier, restricted to the harnesses the native sweep flagged: $hits)" >> $out/check_$pid.txt)
-  if ! grep -q "^VIOLATION" $out/check_$pid.txt && [ "$tier" = quick ]; then
-    # the flagged harnesses may belong to the thorough tier only (larger bounds, slow ones)
-    (cd $V && VERIF_ONLY="$hits" python3 check.py $pid --tier thorough > $out/check_${pid}_thorough.txt 2>$out/check_${pid}_thorough.err; echo "exit=$? (tier thorough, restricted to the harnesses the native sweep flagged: $hits)" >> $out/check_${pid}_thorough.txt)
-    if grep -q "^VIOLATION" $out/check_${pid}_thorough.txt; then cp $out/check_${pid}_thorough.txt $out/check_$pid.txt; fi
-  fi
-fi
-if [ -z "$hits" ] || { ! grep -q "^VIOLATION" $out/check_$pid.txt && grep -q "no obligation was generated" $out/check_$pid.txt; }; then
-  (cd $V && python3 check.py $pid --tier $tier > $out/check_$pid.txt 2>$out/check_$pid.err; echo "exit=$? (tier $tier, full check; native sweep flagged nothing the restricted runs could decide)" >> $out/check_$pid.txt)
-fi
--if [ -n "$hits" ]; then
-  (cd $V && VERIF_ONLY="$hits" python3 check.py $pid --tier $tier > $out/check_$pid.txt 2>$out/check_$pid.err; echo "exit=$? (tier $tier, restricted to the harnesses the native sweep flagged: $hits)" >> $out/check_$pid.txt)
-  if ! grep -q "^VIOLATION" $out/check_$pid.txt && [ "$tier" = quick ]; then
-    # the flagged harnesses may belong to the thorough tier only (larger bounds, slow ones)
-    (cd $V && VERIF_ONLY="$hits" python3 check.py $pid --tier thorough > $out/check_${pid}_thorough.txt 2>$out/check_${pid}_thorough.err; echo "exit=$? (tier thorough, restricted to the harnesses the native sweep flagged: $hits)" >> $out/check_${pid}_thorough.txt)
-    if grep -q "^VIOLATION" $out/check_${pid}_thorough.txt; then cp $out/check_${pid}_thorough.txt $out/check_$pid.txt; fi
-  fi
-fi
-if [ -z "$hits" ] || { ! grep -q "^VIOLATION" $out/check_$pid.txt && grep -q "no obligation was generated" $out/check_$pid.txt; }; then
-  (cd $V && python3 check.py $pid --tier $tier > $out/check_$pid.txt 2>$out/check_$pid.err; echo "exit=$? (tier $tier, full check; native sweep flagged nothing the restricted runs could decide)" >> $out/check_$pid.txt)
-fi
-Cif [ -n "$hits" ]; then
-  (cd $V && VERIF_ONLY="$hits" python3 check.py $pid --tier $tier > $out/check_$pid.txt 2>$out/check_$pid.err; echo "exit=$? (tier $tier, restricted to the harnesses the native sweep flagged: $hits)" >> $out/check_$pid.txt)
-  if ! grep -q "^VIOLATION" $out/check_$pid.txt && [ "$tier" = quick ]; then
-    # the flagged harnesses may belong to the thorough tier only (larger bounds, slow ones)
-    (cd $V && VERIF_ONLY="$hits" python3 check.py $pid --tier thorough > $out/check_${pid}_thorough.txt 2>$out/check_${pid}_thorough.err; echo "exit=$? (tier thorough, restricted to the harnesses the native sweep flagged: $hits)" >> $out/check_${pid}_thorough.txt)
-    if grep -q "^VIOLATION" $out/check_${pid}_thorough.txt; then cp $out/check_${pid}_thorough.txt $out/check_$pid.txt; fi
-  fi
-fi
-if [ -z "$hits" ] || { ! grep -q "^VIOLATION" $out/check_$pid.txt && grep -q "no obligation was generated" $out/check_$pid.txt; }; then
-  (cd $V && python3 check.py $pid --tier $tier > $out/check_$pid.txt 2>$out/check_$pid.err; echo "exit=$? (tier $tier, full check; native sweep flagged nothing the restricted runs could decide)" >> $out/check_$pid.txt)
-fi
- if [ -n "$hits" ]; then
-  (cd $V && VERIF_ONLY="$hits" python3 check.py $pid --tier $tier > $out/check_$pid.txt 2>$out/check_$pid.err; echo "exit=$? (tier $tier, restricted to the harnesses the native sweep flagged: $hits)" >> $out/check_$pid.txt)
-  if ! grep -q "^VIOLATION" $out/check_$pid.txt && [ "$tier" = quick ]; then
-    # the flagged harnesses may belong to the thorough tier only (larger bounds, slow ones)
-    (cd $V && VERIF_ONLY="$hits" python3 check.py $pid --tier thorough > $out/check_${pid}_thorough.txt 2>$out/check_${pid}_thorough.err; echo "exit=$? (tier thorough, restricted to the harnesses the native sweep flagged: $hits)" >> $out/check_${pid}_thorough.txt)
-    if grep -q "^VIOLATION" $out/check_${pid}_thorough.txt; then cp $out/check_${pid}_thorough.txt $out/check_$pid.txt; fi
-  fi
-fi
-if [ -z "$hits" ] || { ! grep -q "^VIOLATION" $out/check_$pid.txt && grep -q "no obligation was generated" $out/check_$pid.txt; }; then
-  (cd $V && python3 check.py $pid --tier $tier > $out/check_$pid.txt 2>$out/check_$pid.err; echo "exit=$? (tier $tier, full check; native sweep flagged nothing the restricted runs could decide)" >> $out/check_$pid.txt)
-fi
-$if [ -n "$hits" ]; then
-  (cd $V && VERIF_ONLY="$hits" python3 check.py $pid --tier $tier > $out/check_$pid.txt 2>$out/check_$pid.err; echo "exit=$? (tier $tier, restricted to the harnesses the native sweep flagged: $hits)" >> $out/check_$pid.txt)
-  if ! grep -q "^VIOLATION" $out/check_$pid.txt && [ "$tier" = quick ]; then
-    # the flagged harnesses may belong to the thorough tier only (larger bounds, slow ones)
-    (cd $V && VERIF_ONLY="$hits" python3 check.py $pid --tier thorough > $out/check_${pid}_thorough.txt 2>$out/check_${pid}_thorough.err; echo "exit=$? (tier thorough, restricted to the harnesses the native sweep flagged: $hits)" >> $out/check_${pid}_thorough.txt)
-    if grep -q "^VIOLATION" $out/check_${pid}_thorough.txt; then cp $out/check_${pid}_thorough.txt $out/check_$pid.txt; fi
-  fi
-fi
-if [ -z "$hits" ] || { ! grep -q "^VIOLATION" $out/check_$pid.txt && grep -q "no obligation was generated" $out/check_$pid.txt; }; then
-  (cd $V && python3 check.py $pid --tier $tier > $out/check_$pid.txt 2>$out/check_$pid.err; echo "exit=$? (tier $tier, full check; native sweep flagged nothing the restricted runs could decide)" >> $out/check_$pid.txt)
-fi
-bif [ -n "$hits" ]; then
-  (cd $V && VERIF_ONLY="$hits" python3 check.py $pid --tier $tier > $out/check_$pid.txt 2>$out/check_$pid.err; echo "exit=$? (tier $tier, restricted to the harnesses the native sweep flagged: $hits)" >> $out/check_$pid.txt)
-  if ! grep -q "^VIOLATION" $out/check_$pid.txt && [ "$tier" = quick ]; then
-    # the flagged harnesses may belong to the thorough tier only (larger bounds, slow ones)
-    (cd $V && VERIF_ONLY="$hits" python3 check.py $pid --tier thorough > $out/check_${pid}_thorough.txt 2>$out/check_${pid}_thorough.err; echo "exit=$? (tier thorough, restricted to the harnesses the native sweep flagged: $hits)" >> $out/check_${pid}_thorough.txt)
-    if grep -q "^VIOLATION" $out/check_${pid}_thorough.txt; then cp $out/check_${pid}_thorough.txt $out/check_$pid.txt; fi
-  fi
-fi
-if [ -z "$hits" ] || { ! grep -q "^VIOLATION" $out/check_$pid.txt && grep -q "no obligation was generated" $out/check_$pid.txt; }; then
-  (cd $V && python3 check.py $pid --tier $tier > $out/check_$pid.txt 2>$out/check_$pid.err; echo "exit=$? (tier $tier, full check; native sweep flagged nothing the restricted runs could decide)" >> $out/check_$pid.txt)
-fi
-aif [ -n "$hits" ]; then
-  (cd $V && VERIF_ONLY="$hits" python3 check.py $pid --tier $tier > $out/check_$pid.txt 2>$out/check_$pid.err; echo "exit=$? (tier $tier, restricted to the harnesses the native sweep flagged: $hits)" >> $out/check_$pid.txt)
-  if ! grep -q "^VIOLATION" $out/check_$pid.txt && [ "$tier" = quick ]; then
-    # the flagged harnesses may belong to the thorough tier only (larger bounds, slow ones)
-    (cd $V && VERIF_ONLY="$hits" python3 check.py $pid --tier thorough > $out/check_${pid}_thorough.txt 2>$out/check_${pid}_thorough.err; echo "exit=$? (tier thorough, restricted to the harnesses the native sweep flagged: $hits)" >> $out/check_${pid}_thorough.txt)
-    if grep -q "^VIOLATION" $out/check_${pid}_thorough.txt; then cp $out/check_${pid}_thorough.txt $out/check_$pid.txt; fi
-  fi
-fi
-if [ -z "$hits" ] || { ! grep -q "^VIOLATION" $out/check_$pid.txt && grep -q "no obligation was generated" $out/check_$pid.txt; }; then
-  (cd $V && python3 check.py $pid --tier $tier > $out/check_$pid.txt 2>$out/check_$pid.err; echo "exit=$? (tier $tier, full check; native sweep flagged nothing the restricted runs could decide)" >> $out/check_$pid.txt)
-fi
-sif [ -n "$hits" ]; then
-  (cd $V && VERIF_ONLY="$hits" python3 check.py $pid --tier $tier > $out/check_$pid.txt 2>$out/check_$pid.err; echo "exit=$? (tier $tier, restricted to the harnesses the native sweep flagged: $hits)" >> $out/check_$pid.txt)
-  if ! grep -q "^VIOLATION" $out/check_$pid.txt && [ "$tier" = quick ]; then
-    # the flagged harnesses may belong to the thorough tier only (larger bounds, slow ones)
-    (cd $V && VERIF_ONLY="$hits" python3 check.py $pid --tier thorough > $out/check_${pid}_thorough.txt 2>$out/check_${pid}_thorough.err; echo "exit=$? (tier thorough, restricted to the harnesses the native sweep flagged: $hits)" >> $out/check_${pid}_thorough.txt)
-    if grep -q "^VIOLATION" $out/check_${pid}_thorough.txt; then cp $out/check_${pid}_thorough.txt $out/check_$pid.txt; fi
-  fi
-fi
-if [ -z "$hits" ] || { ! grep -q "^VIOLATION" $out/check_$pid.txt && grep -q "no obligation was generated" $out/check_$pid.txt; }; then
-  (cd $V && python3 check.py $pid --tier $tier > $out/check_$pid.txt 2>$out/check_$pid.err; echo "exit=$? (tier $tier, full check; native sweep flagged nothing the restricted runs could decide)" >> $out/check_$pid.txt)
-fi
-eif [ -n "$hits" ]; then
-  (cd $V && VERIF_ONLY="$hits" python3 check.py $pid --tier $tier > $out/check_$pid.txt 2>$out/check_$pid.err; echo "exit=$? (tier $tier, restricted to the harnesses the native sweep flagged: $hits)" >> $out/check_$pid.txt)
-  if ! grep -q "^VIOLATION" $out/check_$pid.txt && [ "$tier" = quick ]; then
-    # the flagged harnesses may belong to the thorough tier only (larger bounds, slow ones)
-    (cd $V && VERIF_ONLY="$hits" python3 check.py $pid --tier thorough > $out/check_${pid}_thorough.txt 2>$out/check_${pid}_thorough.err; echo "exit=$? (tier thorough, restricted to the harnesses the native sweep flagged: $hits)" >> $out/check_${pid}_thorough.txt)
-    if grep -q "^VIOLATION" $out/check_${pid}_thorough.txt; then cp $out/check_${pid}_thorough.txt $out/check_$pid.txt; fi
-  fi
-fi
-if [ -z "$hits" ] || { ! grep -q "^VIOLATION" $out/check_$pid.txt && grep -q "no obligation was generated" $out/check_$pid.txt; }; then
-  (cd $V && python3 check.py $pid --tier $tier > $out/check_$pid.txt 2>$out/check_$pid.err; echo "exit=$? (tier $tier, full check; native sweep flagged nothing the restricted runs could decide)" >> $out/check_$pid.txt)
-fi
- if [ -n "$hits" ]; then
-  (cd $V && VERIF_ONLY="$hits" python3 check.py $pid --tier $tier > $out/check_$pid.txt 2>$out/check_$pid.err; echo "exit=$? (tier $tier, restricted to the harnesses the native sweep flagged: $hits)" >> $out/check_$pid.txt)
-  if ! grep -q "^VIOLATION" $out/check_$pid.txt && [ "$tier" = quick ]; then
-    # the flagged harnesses may belong to the thorough tier only (larger bounds, slow ones)
-    (cd $V && VERIF_ONLY="$hits" python3 check.py $pid --tier thorough > $out/check_${pid}_thorough.txt 2>$out/check_${pid}_thorough.err; echo "exit=$? (tier thorough, restricted to the harnesses the native sweep flagged: $hits)" >> $out/check_${pid}_thorough.txt)
-    if grep -q "^VIOLATION" $out/check_${pid}_thorough.txt; then cp $out/check_${pid}_thorough.txt $out/check_$pid.txt; fi
-  fi
-fi
-if [ -z "$hits" ] || { ! grep -q "^VIOLATION" $out/check_$pid.txt && grep -q "no obligation was generated" $out/check_$pid.txt; }; then
-  (cd $V && python3 check.py $pid --tier $tier > $out/check_$pid.txt 2>$out/check_$pid.err; echo "exit=$? (tier $tier, full check; native sweep flagged nothing the restricted runs could decide)" >> $out/check_$pid.txt)
-fi
-wif [ -n "$hits" ]; then
-  (cd $V && VERIF_ONLY="$hits" python3 check.py $pid --tier $tier > $out/check_$pid.txt 2>$out/check_$pid.err; echo "exit=$? (tier $tier, restricted to the harnesses the native sweep flagged: $hits)" >> $out/check_$pid.txt)
-  if ! grep -q "^VIOLATION" $out/check_$pid.txt && [ "$tier" = quick ]; then
-    # the flagged harnesses may belong to the thorough tier only (larger bounds, slow ones)
-    (cd $V && VERIF_ONLY="$hits" python3 check.py $pid --tier thorough > $out/check_${pid}_thorough.txt 2>$out/check_${pid}_thorough.err; echo "exit=$? (tier thorough, restricted to the harnesses the native sweep flagged: $hits)" >> $out/check_${pid}_thorough.txt)
-    if grep -q "^VIOLATION" $out/check_${pid}_thorough.txt; then cp $out/check_${pid}_thorough.txt $out/check_$pid.txt; fi
-  fi
-fi
-if [ -z "$hits" ] || { ! grep -q "^VIOLATION" $out/check_$pid.txt && grep -q "no obligation was generated" $out/check_$pid.txt; }; then
-  (cd $V && python3 check.py $pid --tier $tier > $out/check_$pid.txt 2>$out/check_$pid.err; echo "exit=$? (tier $tier, full check; native sweep flagged nothing the restricted runs could decide)" >> $out/check_$pid.txt)
-fi
-oif [ -n "$hits" ]; then
-  (cd $V && VERIF_ONLY="$hits" python3 check.py $pid --tier $tier > $out/check_$pid.txt 2>$out/check_$pid.err; echo "exit=$? (tier $tier, restricted to the harnesses the native sweep flagged: $hits)" >> $out/check_$pid.txt)
-  if ! grep -q "^VIOLATION" $out/check_$pid.txt && [ "$tier" = quick ]; then
-    # the flagged harnesses may belong to the thorough tier only (larger bounds, slow ones)
-    (cd $V && VERIF_ONLY="$hits" python3 check.py $pid --tier thorough > $out/check_${pid}_thorough.txt 2>$out/check_${pid}_thorough.err; echo "exit=$? (tier thorough, restricted to the harnesses the native sweep flagged: $hits)" >> $out/check_${pid}_thorough.txt)
-    if grep -q "^VIOLATION" $out/check_${pid}_thorough.txt; then cp $out/check_${pid}_thorough.txt $out/check_$pid.txt; fi
-  fi
-fi
-if [ -z "$hits" ] || { ! grep -q "^VIOLATION" $out/check_$pid.txt && grep -q "no obligation was generated" $out/check_$pid.txt; }; then
-  (cd $V && python3 check.py $pid --tier $tier > $out/check_$pid.txt 2>$out/check_$pid.err; echo "exit=$? (tier $tier, full check; native sweep flagged nothing the restricted runs could decide)" >> $out/check_$pid.txt)
-fi
-rif [ -n "$hits" ]; then
-  (cd $V && VERIF_ONLY="$hits" python3 check.py $pid --tier $tier > $out/check_$pid.txt 2>$out/check_$pid.err; echo "exit=$? (tier $tier, restricted to the harnesses the native sweep flagged: $hits)" >> $out/check_$pid.txt)
-  if ! grep -q "^VIOLATION" $out/check_$pid.txt && [ "$tier" = quick ]; then
-    # the flagged harnesses may belong to the thorough tier only (larger bounds, slow ones)
-    (cd $V && VERIF_ONLY="$hits" python3 check.py $pid --tier thorough > $out/check_${pid}_thorough.txt 2>$out/check_${pid}_thorough.err; echo "exit=$? (tier thorough, restricted to the harnesses the native sweep flagged: $hits)" >> $out/check_${pid}_thorough.txt)
-    if grep -q "^VIOLATION" $out/check_${pid}_thorough.txt; then cp $out/check_${pid}_thorough.txt $out/check_$pid.txt; fi
-  fi
-fi
-if [ -z "$hits" ] || { ! grep -q "^VIOLATION" $out/check_$pid.txt && grep -q "no obligation was generated" $out/check_$pid.txt; }; then
-  (cd $V && python3 check.py $pid --tier $tier > $out/check_$pid.txt 2>$out/check_$pid.err; echo "exit=$? (tier $tier, full check; native sweep flagged nothing the restricted runs could decide)" >> $out/check_$pid.txt)
-fi
-kif [ -n "$hits" ]; then
-  (cd $V && VERIF_ONLY="$hits" python3 check.py $pid --tier $tier > $out/check_$pid.txt 2>$out/check_$pid.err; echo "exit=$? (tier $tier, restricted to the harnesses the native sweep flagged: $hits)" >> $out/check_$pid.txt)
-  if ! grep -q "^VIOLATION" $out/check_$pid.txt && [ "$tier" = quick ]; then
-    # the flagged harnesses may belong to the thorough tier only (larger bounds, slow ones)
-    (cd $V && VERIF_ONLY="$hits" python3 check.py $pid --tier thorough > $out/check_${pid}_thorough.txt 2>$out/check_${pid}_thorough.err; echo "exit=$? (tier thorough, restricted to the harnesses the native sweep flagged: $hits)" >> $out/check_${pid}_thorough.txt)
-    if grep -q "^VIOLATION" $out/check_${pid}_thorough.txt; then cp $out/check_${pid}_thorough.txt $out/check_$pid.txt; fi
-  fi
-fi
-if [ -z "$hits" ] || { ! grep -q "^VIOLATION" $out/check_$pid.txt && grep -q "no obligation was generated" $out/check_$pid.txt; }; then
-  (cd $V && python3 check.py $pid --tier $tier > $out/check_$pid.txt 2>$out/check_$pid.err; echo "exit=$? (tier $tier, full check; native sweep flagged nothing the restricted runs could decide)" >> $out/check_$pid.txt)
-fi
-tif [ -n "$hits" ]; then
-  (cd $V && VERIF_ONLY="$hits" python3 check.py $pid --tier $tier > $out/check_$pid.txt 2>$out/check_$pid.err; echo "exit=$? (tier $tier, restricted to the harnesses the native sweep flagged: $hits)" >> $out/check_$pid.txt)
-  if ! grep -q "^VIOLATION" $out/check_$pid.txt && [ "$tier" = quick ]; then
-    # the flagged harnesses may belong to the thorough tier only (larger bounds, slow ones)
-    (cd $V && VERIF_ONLY="$hits" python3 check.py $pid --tier thorough > $out/check_${pid}_thorough.txt 2>$out/check_${pid}_thorough.err; echo "exit=$? (tier thorough, restricted to the harnesses the native sweep flagged: $hits)" >> $out/check_${pid}_thorough.txt)
-    if grep -q "^VIOLATION" $out/check_${pid}_thorough.txt; then cp $out/check_${pid}_thorough.txt $out/check_$pid.txt; fi
-  fi
-fi
-if [ -z "$hits" ] || { ! grep -q "^VIOLATION" $out/check_$pid.txt && grep -q "no obligation was generated" $out/check_$pid.txt; }; then
-  (cd $V && python3 check.py $pid --tier $tier > $out/check_$pid.txt 2>$out/check_$pid.err; echo "exit=$? (tier $tier, full check; native sweep flagged nothing the restricted runs could decide)" >> $out/check_$pid.txt)
-fi
-rif [ -n "$hits" ]; then
-  (cd $V && VERIF_ONLY="$hits" python3 check.py $pid --tier $tier > $out/check_$pid.txt 2>$out/check_$pid.err; echo "exit=$? (tier $tier, restricted to the harnesses the native sweep flagged: $hits)" >> $out/check_$pid.txt)
-  if ! grep -q "^VIOLATION" $out/check_$pid.txt && [ "$tier" = quick ]; then
-    # the flagged harnesses may belong to the thorough tier only (larger bounds, slow ones)
-    (cd $V && VERIF_ONLY="$hits" python3 check.py $pid --tier thorough > $out/check_${pid}_thorough.txt 2>$out/check_${pid}_thorough.err; echo "exit=$? (tier thorough, restricted to the harnesses the native sweep flagged: $hits)" >> $out/check_${pid}_thorough.txt)
-    if grep -q "^VIOLATION" $out/check_${pid}_thorough.txt; then cp $out/check_${pid}_thorough.txt $out/check_$pid.txt; fi
-  fi
-fi
-if [ -z "$hits" ] || { ! grep -q "^VIOLATION" $out/check_$pid.txt && grep -q "no obligation was generated" $out/check_$pid.txt; }; then
-  (cd $V && python3 check.py $pid --tier $tier > $out/check_$pid.txt 2>$out/check_$pid.err; echo "exit=$? (tier $tier, full check; native sweep flagged nothing the restricted runs could decide)" >> $out/check_$pid.txt)
-fi
-eif [ -n "$hits" ]; then
-  (cd $V && VERIF_ONLY="$hits" python3 check.py $pid --tier $tier > $out/check_$pid.txt 2>$out/check_$pid.err; echo "exit=$? (tier $tier, restricted to the harnesses the native sweep flagged: $hits)" >> $out/check_$pid.txt)
-  if ! grep -q "^VIOLATION" $out/check_$pid.txt && [ "$tier" = quick ]; then
-    # the flagged harnesses may belong to the thorough tier only (larger bounds, slow ones)
-    (cd $V && VERIF_ONLY="$hits" python3 check.py $pid --tier thorough > $out/check_${pid}_thorough.txt 2>$out/check_${pid}_thorough.err; echo "exit=$? (tier thorough, restricted to the harnesses the native sweep flagged: $hits)" >> $out/check_${pid}_thorough.txt)
-    if grep -q "^VIOLATION" $out/check_${pid}_thorough.txt; then cp $out/check_${pid}_thorough.txt $out/check_$pid.txt; fi
-  fi
-fi
-if [ -z "$hits" ] || { ! grep -q "^VIOLATION" $out/check_$pid.txt && grep -q "no obligation was generated" $out/check_$pid.txt; }; then
-  (cd $V && python3 check.py $pid --tier $tier > $out/check_$pid.txt 2>$out/check_$pid.err; echo "exit=$? (tier $tier, full check; native sweep flagged nothing the restricted runs could decide)" >> $out/check_$pid.txt)
-fi
-eif [ -n "$hits" ]; then
-  (cd $V && VERIF_ONLY="$hits" python3 check.py $pid --tier $tier > $out/check_$pid.txt 2>$out/check_$pid.err; echo "exit=$? (tier $tier, restricted to the harnesses the native sweep flagged: $hits)" >> $out/check_$pid.txt)
-  if ! grep -q "^VIOLATION" $out/check_$pid.txt && [ "$tier" = quick ]; then
-    # the flagged harnesses may belong to the thorough tier only (larger bounds, slow ones)
-    (cd $V && VERIF_ONLY="$hits" python3 check.py $pid --tier thorough > $out/check_${pid}_thorough.txt 2>$out/check_${pid}_thorough.err; echo "exit=$? (tier thorough, restricted to the harnesses the native sweep flagged: $hits)" >> $out/check_${pid}_thorough.txt)
-    if grep -q "^VIOLATION" $out/check_${pid}_thorough.txt; then cp $out/check_${pid}_thorough.txt $out/check_$pid.txt; fi
-  fi
-fi
-if [ -z "$hits" ] || { ! grep -q "^VIOLATION" $out/check_$pid.txt && grep -q "no obligation was generated" $out/check_$pid.txt; }; then
-  (cd $V && python3 check.py $pid --tier $tier > $out/check_$pid.txt 2>$out/check_$pid.err; echo "exit=$? (tier $tier, full check; native sweep flagged nothing the restricted runs could decide)" >> $out/check_$pid.txt)
-fi
- if [ -n "$hits" ]; then
-  (cd $V && VERIF_ONLY="$hits" python3 check.py $pid --tier $tier > $out/check_$pid.txt 2>$out/check_$pid.err; echo "exit=$? (tier $tier, restricted to the harnesses the native sweep flagged: $hits)" >> $out/check_$pid.txt)
-  if ! grep -q "^VIOLATION" $out/check_$pid.txt && [ "$tier" = quick ]; then
-    # the flagged harnesses may belong to the thorough tier only (larger bounds, slow ones)
-    (cd $V && VERIF_ONLY="$hits" python3 check.py $pid --tier thorough > $out/check_${pid}_thorough.txt 2>$out/check_${pid}_thorough.err; echo "exit=$? (tier thorough, restricted to the harnesses the native sweep flagged: $hits)" >> $out/check_${pid}_thorough.txt)
-    if grep -q "^VIOLATION" $out/check_${pid}_thorough.txt; then cp $out/check_${pid}_thorough.txt $out/check_$pid.txt; fi
-  fi
-fi
-if [ -z "$hits" ] || { ! grep -q "^VIOLATION" $out/check_$pid.txt && grep -q "no obligation was generated" $out/check_$pid.txt; }; then
-  (cd $V && python3 check.py $pid --tier $tier > $out/check_$pid.txt 2>$out/check_$pid.err; echo "exit=$? (tier $tier, full check; native sweep flagged nothing the restricted runs could decide)" >> $out/check_$pid.txt)
-fi
-rif [ -n "$hits" ]; then
-  (cd $V && VERIF_ONLY="$hits" python3 check.py $pid --tier $tier > $out/check_$pid.txt 2>$out/check_$pid.err; echo "exit=$? (tier $tier, restricted to the harnesses the native sweep flagged: $hits)" >> $out/check_$pid.txt)
-  if ! grep -q "^VIOLATION" $out/check_$pid.txt && [ "$tier" = quick ]; then
-    # the flagged harnesses may belong to the thorough tier only (larger bounds, slow ones)
-    (cd $V && VERIF_ONLY="$hits" python3 check.py $pid --tier thorough > $out/check_${pid}_thorough.txt 2>$out/check_${pid}_thorough.err; echo "exit=$? (tier thorough, restricted to the harnesses the native sweep flagged: $hits)" >> $out/check_${pid}_thorough.txt)
-    if grep -q "^VIOLATION" $out/check_${pid}_thorough.txt; then cp $out/check_${pid}_thorough.txt $out/check_$pid.txt; fi
-  fi
-fi
-if [ -z "$hits" ] || { ! grep -q "^VIOLATION" $out/check_$pid.txt && grep -q "no obligation was generated" $out/check_$pid.txt; }; then
-  (cd $V && python3 check.py $pid --tier $tier > $out/check_$pid.txt 2>$out/check_$pid.err; echo "exit=$? (tier $tier, full check; native sweep flagged nothing the restricted runs could decide)" >> $out/check_$pid.txt)
-fi
-eif [ -n "$hits" ]; then
-  (cd $V && VERIF_ONLY="$hits" python3 check.py $pid --tier $tier > $out/check_$pid.txt 2>$out/check_$pid.err; echo "exit=$? (tier $tier, restricted to the harnesses the native sweep flagged: $hits)" >> $out/check_$pid.txt)
-  if ! grep -q "^VIOLATION" $out/check_$pid.txt && [ "$tier" = quick ]; then
-    # the flagged harnesses may belong to the thorough tier only (larger bounds, slow ones)
-    (cd $V && VERIF_ONLY="$hits" python3 check.py $pid --tier thorough > $out/check_${pid}_thorough.txt 2>$out/check_${pid}_thorough.err; echo "exit=$? (tier thorough, restricted to the harnesses the native sweep flagged: $hits)" >> $out/check_${pid}_thorough.txt)
-    if grep -q "^VIOLATION" $out/check_${pid}_thorough.txt; then cp $out/check_${pid}_thorough.txt $out/check_$pid.txt; fi
-  fi
-fi
-if [ -z "$hits" ] || { ! grep -q "^VIOLATION" $out/check_$pid.txt && grep -q "no obligation was generated" $out/check_$pid.txt; }; then
-  (cd $V && python3 check.py $pid --tier $tier > $out/check_$pid.txt 2>$out/check_$pid.err; echo "exit=$? (tier $tier, full check; native sweep flagged nothing the restricted runs could decide)" >> $out/check_$pid.txt)
-fi
-mif [ -n "$hits" ]; then
-  (cd $V && VERIF_ONLY="$hits" python3 check.py $pid --tier $tier > $out/check_$pid.txt 2>$out/check_$pid.err; echo "exit=$? (tier $tier, restricted to the harnesses the native sweep flagged: $hits)" >> $out/check_$pid.txt)
-  if ! grep -q "^VIOLATION" $out/check_$pid.txt && [ "$tier" = quick ]; then
-    # the flagged harnesses may belong to the thorough tier only (larger bounds, slow ones)
-    (cd $V && VERIF_ONLY="$hits" python3 check.py $pid --tier thorough > $out/check_${pid}_thorough.txt 2>$out/check_${pid}_thorough.err; echo "exit=$? (tier thorough, restricted to the harnesses the native sweep flagged: $hits)" >> $out/check_${pid}_thorough.txt)
-    if grep -q "^VIOLATION" $out/check_${pid}_thorough.txt; then cp $out/check_${pid}_thorough.txt $out/check_$pid.txt; fi
-  fi
-fi
-if [ -z "$hits" ] || { ! grep -q "^VIOLATION" $out/check_$pid.txt && grep -q "no obligation was generated" $out/check_$pid.txt; }; then
-  (cd $V && python3 check.py $pid --tier $tier > $out/check_$pid.txt 2>$out/check_$pid.err; echo "exit=$? (tier $tier, full check; native sweep flagged nothing the restricted runs could decide)" >> $out/check_$pid.txt)
-fi
-oif [ -n "$hits" ]; then
-  (cd $V && VERIF_ONLY="$hits" python3 check.py $pid --tier $tier > $out/check_$pid.txt 2>$out/check_$pid.err; echo "exit=$? (tier $tier, restricted to the harnesses the native sweep flagged: $hits)" >> $out/check_$pid.txt)
-  if ! grep -q "^VIOLATION" $out/check_$pid.txt && [ "$tier" = quick ]; then
-    # the flagged harnesses may belong to the thorough tier only (larger bounds, slow ones)
-    (cd $V && VERIF_ONLY="$hits" python3 check.py $pid --tier thorough > $out/check_${pid}_thorough.txt 2>$out/check_${pid}_thorough.err; echo "exit=$? (tier thorough, restricted to the harnesses the native sweep flagged: $hits)" >> $out/check_${pid}_thorough.txt)
-    if grep -q "^VIOLATION" $out/check_${pid}_thorough.txt; then cp $out/check_${pid}_thorough.txt $out/check_$pid.txt; fi
-  fi
-fi
-if [ -z "$hits" ] || { ! grep -q "^VIOLATION" $out/check_$pid.txt && grep -q "no obligation was generated" $out/check_$pid.txt; }; then
-  (cd $V && python3 check.py $pid --tier $tier > $out/check_$pid.txt 2>$out/check_$pid.err; echo "exit=$? (tier $tier, full check; native sweep flagged nothing the restricted runs could decide)" >> $out/check_$pid.txt)
-fi
-vif [ -n "$hits" ]; then
-  (cd $V && VERIF_ONLY="$hits" python3 check.py $pid --tier $tier > $out/check_$pid.txt 2>$out/check_$pid.err; echo "exit=$? (tier $tier, restricted to the harnesses the native sweep flagged: $hits)" >> $out/check_$pid.txt)
-  if ! grep -q "^VIOLATION" $out/check_$pid.txt && [ "$tier" = quick ]; then
-    # the flagged harnesses may belong to the thorough tier only (larger bounds, slow ones)
-    (cd $V && VERIF_ONLY="$hits" python3 check.py $pid --tier thorough > $out/check_${pid}_thorough.txt 2>$out/check_${pid}_thorough.err; echo "exit=$? (tier thorough, restricted to the harnesses the native sweep flagged: $hits)" >> $out/check_${pid}_thorough.txt)
-    if grep -q "^VIOLATION" $out/check_${pid}_thorough.txt; then cp $out/check_${pid}_thorough.txt $out/check_$pid.txt; fi
-  fi
-fi
-if [ -z "$hits" ] || { ! grep -q "^VIOLATION" $out/check_$pid.txt && grep -q "no obligation was generated" $out/check_$pid.txt; }; then
-  (cd $V && python3 check.py $pid --tier $tier > $out/check_$pid.txt 2>$out/check_$pid.err; echo "exit=$? (tier $tier, full check; native sweep flagged nothing the restricted runs could decide)" >> $out/check_$pid.txt)
-fi
-eif [ -n "$hits" ]; then
-  (cd $V && VERIF_ONLY="$hits" python3 check.py $pid --tier $tier > $out/check_$pid.txt 2>$out/check_$pid.err; echo "exit=$? (tier $tier, restricted to the harnesses the native sweep flagged: $hits)" >> $out/check_$pid.txt)
-  if ! grep -q "^VIOLATION" $out/check_$pid.txt && [ "$tier" = quick ]; then
-    # the flagged harnesses may belong to the thorough tier only (larger bounds, slow ones)
-    (cd $V && VERIF_ONLY="$hits" python3 check.py $pid --tier thorough > $out/check_${pid}_thorough.txt 2>$out/check_${pid}_thorough.err; echo "exit=$? (tier thorough, restricted to the harnesses the native sweep flagged: $hits)" >> $out/check_${pid}_thorough.txt)
-    if grep -q "^VIOLATION" $out/check_${pid}_thorough.txt; then cp $out/check_${pid}_thorough.txt $out/check_$pid.txt; fi
-  fi
-fi
-if [ -z "$hits" ] || { ! grep -q "^VIOLATION" $out/check_$pid.txt && grep -q "no obligation was generated" $out/check_$pid.txt; }; then
-  (cd $V && python3 check.py $pid --tier $tier > $out/check_$pid.txt 2>$out/check_$pid.err; echo "exit=$? (tier $tier, full check; native sweep flagged nothing the restricted runs could decide)" >> $out/check_$pid.txt)
-fi
- if [ -n "$hits" ]; then
-  (cd $V && VERIF_ONLY="$hits" python3 check.py $pid --tier $tier > $out/check_$pid.txt 2>$out/check_$pid.err; echo "exit=$? (tier $tier, restricted to the harnesses the native sweep flagged: $hits)" >> $out/check_$pid.txt)
-  if ! grep -q "^VIOLATION" $out/check_$pid.txt && [ "$tier" = quick ]; then
-    # the flagged harnesses may belong to the thorough tier only (larger bounds, slow ones)
-    (cd $V && VERIF_ONLY="$hits" python3 check.py $pid --tier thorough > $out/check_${pid}_thorough.txt 2>$out/check_${pid}_thorough.err; echo "exit=$? (tier thorough, restricted to the harnesses the native sweep flagged: $hits)" >> $out/check_${pid}_thorough.txt)
-    if grep -q "^VIOLATION" $out/check_${pid}_thorough.txt; then cp $out/check_${pid}_thorough.txt $out/check_$pid.txt; fi
-  fi
-fi
-if [ -z "$hits" ] || { ! grep -q "^VIOLATION" $out/check_$pid.txt && grep -q "no obligation was generated" $out/check_$pid.txt; }; then
-  (cd $V && python3 check.py $pid --tier $tier > $out/check_$pid.txt 2>$out/check_$pid.err; echo "exit=$? (tier $tier, full check; native sweep flagged nothing the restricted runs could decide)" >> $out/check_$pid.txt)
-fi
--if [ -n "$hits" ]; then
-  (cd $V && VERIF_ONLY="$hits" python3 check.py $pid --tier $tier > $out/check_$pid.txt 2>$out/check_$pid.err; echo "exit=$? (tier $tier, restricted to the harnesses the native sweep flagged: $hits)" >> $out/check_$pid.txt)
-  if ! grep -q "^VIOLATION" $out/check_$pid.txt && [ "$tier" = quick ]; then
-    # the flagged harnesses may belong to the thorough tier only (larger bounds, slow ones)
-    (cd $V && VERIF_ONLY="$hits" python3 check.py $pid --tier thorough > $out/check_${pid}_thorough.txt 2>$out/check_${pid}_thorough.err; echo "exit=$? (tier thorough, restricted to the harnesses the native sweep flagged: $hits)" >> $out/check_${pid}_thorough.txt)
-    if grep -q "^VIOLATION" $out/check_${pid}_thorough.txt; then cp $out/check_${pid}_thorough.txt $out/check_$pid.txt; fi
-  fi
-fi
-if [ -z "$hits" ] || { ! grep -q "^VIOLATION" $out/check_$pid.txt && grep -q "no obligation was generated" $out/check_$pid.txt; }; then
-  (cd $V && python3 check.py $pid --tier $tier > $out/check_$pid.txt 2>$out/check_$pid.err; echo "exit=$? (tier $tier, full check; native sweep flagged nothing the restricted runs could decide)" >> $out/check_$pid.txt)
-fi
--if [ -n "$hits" ]; then
-  (cd $V && VERIF_ONLY="$hits" python3 check.py $pid --tier $tier > $out/check_$pid.txt 2>$out/check_$pid.err; echo "exit=$? (tier $tier, restricted to the harnesses the native sweep flagged: $hits)" >> $out/check_$pid.txt)
-  if ! grep -q "^VIOLATION" $out/check_$pid.txt && [ "$tier" = quick ]; then
-    # the flagged harnesses may belong to the thorough tier only (larger bounds, slow ones)
-    (cd $V && VERIF_ONLY="$hits" python3 check.py $pid --tier thorough > $out/check_${pid}_thorough.txt 2>$out/check_${pid}_thorough.err; echo "exit=$? (tier thorough, restricted to the harnesses the native sweep flagged: $hits)" >> $out/check_${pid}_thorough.txt)
-    if grep -q "^VIOLATION" $out/check_${pid}_thorough.txt; then cp $out/check_${pid}_thorough.txt $out/check_$pid.txt; fi
-  fi
-fi
-if [ -z "$hits" ] || { ! grep -q "^VIOLATION" $out/check_$pid.txt && grep -q "no obligation was generated" $out/check_$pid.txt; }; then
-  (cd $V && python3 check.py $pid --tier $tier > $out/check_$pid.txt 2>$out/check_$pid.err; echo "exit=$? (tier $tier, full check; native sweep flagged nothing the restricted runs could decide)" >> $out/check_$pid.txt)
-fi
-fif [ -n "$hits" ]; then
-  (cd $V && VERIF_ONLY="$hits" python3 check.py $pid --tier $tier > $out/check_$pid.txt 2>$out/check_$pid.err; echo "exit=$? (tier $tier, restricted to the harnesses the native sweep flagged: $hits)" >> $out/check_$pid.txt)
-  if ! grep -q "^VIOLATION" $out/check_$pid.txt && [ "$tier" = quick ]; then
-    # the flagged harnesses may belong to the thorough tier only (larger bounds, slow ones)
-    (cd $V && VERIF_ONLY="$hits" python3 check.py $pid --tier thorough > $out/check_${pid}_thorough.txt 2>$out/check_${pid}_thorough.err; echo "exit=$? (tier thorough, restricted to the harnesses the native sweep flagged: $hits)" >> $out/check_${pid}_thorough.txt)
-    if grep -q "^VIOLATION" $out/check_${pid}_thorough.txt; then cp $out/check_${pid}_thorough.txt $out/check_$pid.txt; fi
-  fi
-fi
-if [ -z "$hits" ] || { ! grep -q "^VIOLATION" $out/check_$pid.txt && grep -q "no obligation was generated" $out/check_$pid.txt; }; then
-  (cd $V && python3 check.py $pid --tier $tier > $out/check_$pid.txt 2>$out/check_$pid.err; echo "exit=$? (tier $tier, full check; native sweep flagged nothing the restricted runs could decide)" >> $out/check_$pid.txt)
-fi
-oif [ -n "$hits" ]; then
-  (cd $V && VERIF_ONLY="$hits" python3 check.py $pid --tier $tier > $out/check_$pid.txt 2>$out/check_$pid.err; echo "exit=$? (tier $tier, restricted to the harnesses the native sweep flagged: $hits)" >> $out/check_$pid.txt)
-  if ! grep -q "^VIOLATION" $out/check_$pid.txt && [ "$tier" = quick ]; then
-    # the flagged harnesses may belong to the thorough tier only (larger bounds, slow ones)
-    (cd $V && VERIF_ONLY="$hits" python3 check.py $pid --tier thorough > $out/check_${pid}_thorough.txt 2>$out/check_${pid}_thorough.err; echo "exit=$? (tier thorough, restricted to the harnesses the native sweep flagged: $hits)" >> $out/check_${pid}_thorough.txt)
-    if grep -q "^VIOLATION" $out/check_${pid}_thorough.txt; then cp $out/check_${pid}_thorough.txt $out/check_$pid.txt; fi
-  fi
-fi
-if [ -z "$hits" ] || { ! grep -q "^VIOLATION" $out/check_$pid.txt && grep -q "no obligation was generated" $out/check_$pid.txt; }; then
-  (cd $V && python3 check.py $pid --tier $tier > $out/check_$pid.txt 2>$out/check_$pid.err; echo "exit=$? (tier $tier, full check; native sweep flagged nothing the restricted runs could decide)" >> $out/check_$pid.txt)
-fi
-rif [ -n "$hits" ]; then
-  (cd $V && VERIF_ONLY="$hits" python3 check.py $pid --tier $tier > $out/check_$pid.txt 2>$out/check_$pid.err; echo "exit=$? (tier $tier, restricted to the harnesses the native sweep flagged: $hits)" >> $out/check_$pid.txt)
-  if ! grep -q "^VIOLATION" $out/check_$pid.txt && [ "$tier" = quick ]; then
-    # the flagged harnesses may belong to the thorough tier only (larger bounds, slow ones)
-    (cd $V && VERIF_ONLY="$hits" python3 check.py $pid --tier thorough > $out/check_${pid}_thorough.txt 2>$out/check_${pid}_thorough.err; echo "exit=$? (tier thorough, restricted to the harnesses the native sweep flagged: $hits)" >> $out/check_${pid}_thorough.txt)
-    if grep -q "^VIOLATION" $out/check_${pid}_thorough.txt; then cp $out/check_${pid}_thorough.txt $out/check_$pid.txt; fi
-  fi
-fi
-if [ -z "$hits" ] || { ! grep -q "^VIOLATION" $out/check_$pid.txt && grep -q "no obligation was generated" $out/check_$pid.txt; }; then
-  (cd $V && python3 check.py $pid --tier $tier > $out/check_$pid.txt 2>$out/check_$pid.err; echo "exit=$? (tier $tier, full check; native sweep flagged nothing the restricted runs could decide)" >> $out/check_$pid.txt)
-fi
-cif [ -n "$hits" ]; then
-  (cd $V && VERIF_ONLY="$hits" python3 check.py $pid --tier $tier > $out/check_$pid.txt 2>$out/check_$pid.err; echo "exit=$? (tier $tier, restricted to the harnesses the native sweep flagged: $hits)" >> $out/check_$pid.txt)
-  if ! grep -q "^VIOLATION" $out/check_$pid.txt && [ "$tier" = quick ]; then
-    # the flagged harnesses may belong to the thorough tier only (larger bounds, slow ones)
-    (cd $V && VERIF_ONLY="$hits" python3 check.py $pid --tier thorough > $out/check_${pid}_thorough.txt 2>$out/check_${pid}_thorough.err; echo "exit=$? (tier thorough, restricted to the harnesses the native sweep flagged: $hits)" >> $out/check_${pid}_thorough.txt)
-    if grep -q "^VIOLATION" $out/check_${pid}_thorough.txt; then cp $out/check_${pid}_thorough.txt $out/check_$pid.txt; fi
-  fi
-fi
-if [ -z "$hits" ] || { ! grep -q "^VIOLATION" $out/check_$pid.txt && grep -q "no obligation was generated" $out/check_$pid.txt; }; then
-  (cd $V && python3 check.py $pid --tier $tier > $out/check_$pid.txt 2>$out/check_$pid.err; echo "exit=$? (tier $tier, full check; native sweep flagged nothing the restricted runs could decide)" >> $out/check_$pid.txt)
-fi
-eif [ -n "$hits" ]; then
-  (cd $V && VERIF_ONLY="$hits" python3 check.py $pid --tier $tier > $out/check_$pid.txt 2>$out/check_$pid.err; echo "exit=$? (tier $tier, restricted to the harnesses the native sweep flagged: $hits)" >> $out/check_$pid.txt)
-  if ! grep -q "^VIOLATION" $out/check_$pid.txt && [ "$tier" = quick ]; then
-    # the flagged harnesses may belong to the thorough tier only (larger bounds, slow ones)
-    (cd $V && VERIF_ONLY="$hits" python3 check.py $pid --tier thorough > $out/check_${pid}_thorough.txt 2>$out/check_${pid}_thorough.err; echo "exit=$? (tier thorough, restricted to the harnesses the native sweep flagged: $hits)" >> $out/check_${pid}_thorough.txt)
-    if grep -q "^VIOLATION" $out/check_${pid}_thorough.txt; then cp $out/check_${pid}_thorough.txt $out/check_$pid.txt; fi
-  fi
-fi
-if [ -z "$hits" ] || { ! grep -q "^VIOLATION" $out/check_$pid.txt && grep -q "no obligation was generated" $out/check_$pid.txt; }; then
-  (cd $V && python3 check.py $pid --tier $tier > $out/check_$pid.txt 2>$out/check_$pid.err; echo "exit=$? (tier $tier, full check; native sweep flagged nothing the restricted runs could decide)" >> $out/check_$pid.txt)
-fi
- if [ -n "$hits" ]; then
-  (cd $V && VERIF_ONLY="$hits" python3 check.py $pid --tier $tier > $out/check_$pid.txt 2>$out/check_$pid.err; echo "exit=$? (tier $tier, restricted to the harnesses the native sweep flagged: $hits)" >> $out/check_$pid.txt)
-  if ! grep -q "^VIOLATION" $out/check_$pid.txt && [ "$tier" = quick ]; then
-    # the flagged harnesses may belong to the thorough tier only (larger bounds, slow ones)
-    (cd $V && VERIF_ONLY="$hits" python3 check.py $pid --tier thorough > $out/check_${pid}_thorough.txt 2>$out/check_${pid}_thorough.err; echo "exit=$? (tier thorough, restricted to the harnesses the native sweep flagged: $hits)" >> $out/check_${pid}_thorough.txt)
-    if grep -q "^VIOLATION" $out/check_${pid}_thorough.txt; then cp $out/check_${pid}_thorough.txt $out/check_$pid.txt; fi
-  fi
-fi
-if [ -z "$hits" ] || { ! grep -q "^VIOLATION" $out/check_$pid.txt && grep -q "no obligation was generated" $out/check_$pid.txt; }; then
-  (cd $V && python3 check.py $pid --tier $tier > $out/check_$pid.txt 2>$out/check_$pid.err; echo "exit=$? (tier $tier, full check; native sweep flagged nothing the restricted runs could decide)" >> $out/check_$pid.txt)
-fi
-$if [ -n "$hits" ]; then
-  (cd $V && VERIF_ONLY="$hits" python3 check.py $pid --tier $tier > $out/check_$pid.txt 2>$out/check_$pid.err; echo "exit=$? (tier $tier, restricted to the harnesses the native sweep flagged: $hits)" >> $out/check_$pid.txt)
-  if ! grep -q "^VIOLATION" $out/check_$pid.txt && [ "$tier" = quick ]; then
-    # the flagged harnesses may belong to the thorough tier only (larger bounds, slow ones)
-    (cd $V && VERIF_ONLY="$hits" python3 check.py $pid --tier thorough > $out/check_${pid}_thorough.txt 2>$out/check_${pid}_thorough.err; echo "exit=$? (tier thorough, restricted to the harnesses the native sweep flagged: $hits)" >> $out/check_${pid}_thorough.txt)
-    if grep -q "^VIOLATION" $out/check_${pid}_thorough.txt; then cp $out/check_${pid}_thorough.txt $out/check_$pid.txt; fi
-  fi
-fi
-if [ -z "$hits" ] || { ! grep -q "^VIOLATION" $out/check_$pid.txt && grep -q "no obligation was generated" $out/check_$pid.txt; }; then
-  (cd $V && python3 check.py $pid --tier $tier > $out/check_$pid.txt 2>$out/check_$pid.err; echo "exit=$? (tier $tier, full check; native sweep flagged nothing the restricted runs could decide)" >> $out/check_$pid.txt)
-fi
-wif [ -n "$hits" ]; then
-  (cd $V && VERIF_ONLY="$hits" python3 check.py $pid --tier $tier > $out/check_$pid.txt 2>$out/check_$pid.err; echo "exit=$? (tier $tier, restricted to the harnesses the native sweep flagged: $hits)" >> $out/check_$pid.txt)
-  if ! grep -q "^VIOLATION" $out/check_$pid.txt && [ "$tier" = quick ]; then
-    # the flagged harnesses may belong to the thorough tier only (larger bounds, slow ones)
-    (cd $V && VERIF_ONLY="$hits" python3 check.py $pid --tier thorough > $out/check_${pid}_thorough.txt 2>$out/check_${pid}_thorough.err; echo "exit=$? (tier thorough, restricted to the harnesses the native sweep flagged: $hits)" >> $out/check_${pid}_thorough.txt)
-    if grep -q "^VIOLATION" $out/check_${pid}_thorough.txt; then cp $out/check_${pid}_thorough.txt $out/check_$pid.txt; fi
-  fi
-fi
-if [ -z "$hits" ] || { ! grep -q "^VIOLATION" $out/check_$pid.txt && grep -q "no obligation was generated" $out/check_$pid.txt; }; then
-  (cd $V && python3 check.py $pid --tier $tier > $out/check_$pid.txt 2>$out/check_$pid.err; echo "exit=$? (tier $tier, full check; native sweep flagged nothing the restricted runs could decide)" >> $out/check_$pid.txt)
-fi
-tif [ -n "$hits" ]; then
-  (cd $V && VERIF_ONLY="$hits" python3 check.py $pid --tier $tier > $out/check_$pid.txt 2>$out/check_$pid.err; echo "exit=$? (tier $tier, restricted to the harnesses the native sweep flagged: $hits)" >> $out/check_$pid.txt)
-  if ! grep -q "^VIOLATION" $out/check_$pid.txt && [ "$tier" = quick ]; then
-    # the flagged harnesses may belong to the thorough tier only (larger bounds, slow ones)
-    (cd $V && VERIF_ONLY="$hits" python3 check.py $pid --tier thorough > $out/check_${pid}_thorough.txt 2>$out/check_${pid}_thorough.err; echo "exit=$? (tier thorough, restricted to the harnesses the native sweep flagged: $hits)" >> $out/check_${pid}_thorough.txt)
-    if grep -q "^VIOLATION" $out/check_${pid}_thorough.txt; then cp $out/check_${pid}_thorough.txt $out/check_$pid.txt; fi
-  fi
-fi
-if [ -z "$hits" ] || { ! grep -q "^VIOLATION" $out/check_$pid.txt && grep -q "no obligation was generated" $out/check_$pid.txt; }; then
-  (cd $V && python3 check.py $pid --tier $tier > $out/check_$pid.txt 2>$out/check_$pid.err; echo "exit=$? (tier $tier, full check; native sweep flagged nothing the restricted runs could decide)" >> $out/check_$pid.txt)
-fi
- if [ -n "$hits" ]; then
-  (cd $V && VERIF_ONLY="$hits" python3 check.py $pid --tier $tier > $out/check_$pid.txt 2>$out/check_$pid.err; echo "exit=$? (tier $tier, restricted to the harnesses the native sweep flagged: $hits)" >> $out/check_$pid.txt)
-  if ! grep -q "^VIOLATION" $out/check_$pid.txt && [ "$tier" = quick ]; then
-    # the flagged harnesses may belong to the thorough tier only (larger bounds, slow ones)
-    (cd $V && VERIF_ONLY="$hits" python3 check.py $pid --tier thorough > $out/check_${pid}_thorough.txt 2>$out/check_${pid}_thorough.err; echo "exit=$? (tier thorough, restricted to the harnesses the native sweep flagged: $hits)" >> $out/check_${pid}_thorough.txt)
-    if grep -q "^VIOLATION" $out/check_${pid}_thorough.txt; then cp $out/check_${pid}_thorough.txt $out/check_$pid.txt; fi
-  fi
-fi
-if [ -z "$hits" ] || { ! grep -q "^VIOLATION" $out/check_$pid.txt && grep -q "no obligation was generated" $out/check_$pid.txt; }; then
-  (cd $V && python3 check.py $pid --tier $tier > $out/check_$pid.txt 2>$out/check_$pid.err; echo "exit=$? (tier $tier, full check; native sweep flagged nothing the restricted runs could decide)" >> $out/check_$pid.txt)
-fi
-2if [ -n "$hits" ]; then
-  (cd $V && VERIF_ONLY="$hits" python3 check.py $pid --tier $tier > $out/check_$pid.txt 2>$out/check_$pid.err; echo "exit=$? (tier $tier, restricted to the harnesses the native sweep flagged: $hits)" >> $out/check_$pid.txt)
-  if ! grep -q "^VIOLATION" $out/check_$pid.txt && [ "$tier" = quick ]; then
-    # the flagged harnesses may belong to the thorough tier only (larger bounds, slow ones)
-    (cd $V && VERIF_ONLY="$hits" python3 check.py $pid --tier thorough > $out/check_${pid}_thorough.txt 2>$out/check_${pid}_thorough.err; echo "exit=$? (tier thorough, restricted to the harnesses the native sweep flagged: $hits)" >> $out/check_${pid}_thorough.txt)
-    if grep -q "^VIOLATION" $out/check_${pid}_thorough.txt; then cp $out/check_${pid}_thorough.txt $out/check_$pid.txt; fi
-  fi
-fi
-if [ -z "$hits" ] || { ! grep -q "^VIOLATION" $out/check_$pid.txt && grep -q "no obligation was generated" $out/check_$pid.txt; }; then
-  (cd $V && python3 check.py $pid --tier $tier > $out/check_$pid.txt 2>$out/check_$pid.err; echo "exit=$? (tier $tier, full check; native sweep flagged nothing the restricted runs could decide)" >> $out/check_$pid.txt)
-fi
->if [ -n "$hits" ]; then
-  (cd $V && VERIF_ONLY="$hits" python3 check.py $pid --tier $tier > $out/check_$pid.txt 2>$out/check_$pid.err; echo "exit=$? (tier $tier, restricted to the harnesses the native sweep flagged: $hits)" >> $out/check_$pid.txt)
-  if ! grep -q "^VIOLATION" $out/check_$pid.txt && [ "$tier" = quick ]; then
-    # the flagged harnesses may belong to the thorough tier only (larger bounds, slow ones)
-    (cd $V && VERIF_ONLY="$hits" python3 check.py $pid --tier thorough > $out/check_${pid}_thorough.txt 2>$out/check_${pid}_thorough.err; echo "exit=$? (tier thorough, restricted to the harnesses the native sweep flagged: $hits)" >> $out/check_${pid}_thorough.txt)
-    if grep -q "^VIOLATION" $out/check_${pid}_thorough.txt; then cp $out/check_${pid}_thorough.txt $out/check_$pid.txt; fi
-  fi
-fi
-if [ -z "$hits" ] || { ! grep -q "^VIOLATION" $out/check_$pid.txt && grep -q "no obligation was generated" $out/check_$pid.txt; }; then
-  (cd $V && python3 check.py $pid --tier $tier > $out/check_$pid.txt 2>$out/check_$pid.err; echo "exit=$? (tier $tier, full check; native sweep flagged nothing the restricted runs could decide)" >> $out/check_$pid.txt)
-fi
-/if [ -n "$hits" ]; then
-  (cd $V && VERIF_ONLY="$hits" python3 check.py $pid --tier $tier > $out/check_$pid.txt 2>$out/check_$pid.err; echo "exit=$? (tier $tier, restricted to the harnesses the native sweep flagged: $hits)" >> $out/check_$pid.txt)
-  if ! grep -q "^VIOLATION" $out/check_$pid.txt && [ "$tier" = quick ]; then
-    # the flagged harnesses may belong to the thorough tier only (larger bounds, slow ones)
-    (cd $V && VERIF_ONLY="$hits" python3 check.py $pid --tier thorough > $out/check_${pid}_thorough.txt 2>$out/check_${pid}_thorough.err; echo "exit=$? (tier thorough, restricted to the harnesses the native sweep flagged: $hits)" >> $out/check_${pid}_thorough.txt)
-    if grep -q "^VIOLATION" $out/check_${pid}_thorough.txt; then cp $out/check_${pid}_thorough.txt $out/check_$pid.txt; fi
-  fi
-fi
-if [ -z "$hits" ] || { ! grep -q "^VIOLATION" $out/check_$pid.txt && grep -q "no obligation was generated" $out/check_$pid.txt; }; then
-  (cd $V && python3 check.py $pid --tier $tier > $out/check_$pid.txt 2>$out/check_$pid.err; echo "exit=$? (tier $tier, full check; native sweep flagged nothing the restricted runs could decide)" >> $out/check_$pid.txt)
-fi
-dif [ -n "$hits" ]; then
-  (cd $V && VERIF_ONLY="$hits" python3 check.py $pid --tier $tier > $out/check_$pid.txt 2>$out/check_$pid.err; echo "exit=$? (tier $tier, restricted to the harnesses the native sweep flagged: $hits)" >> $out/check_$pid.txt)
-  if ! grep -q "^VIOLATION" $out/check_$pid.txt && [ "$tier" = quick ]; then
-    # the flagged harnesses may belong to the thorough tier only (larger bounds, slow ones)
-    (cd $V && VERIF_ONLY="$hits" python3 check.py $pid --tier thorough > $out/check_${pid}_thorough.txt 2>$out/check_${pid}_thorough.err; echo "exit=$? (tier thorough, restricted to the harnesses the native sweep flagged: $hits)" >> $out/check_${pid}_thorough.txt)
-    if grep -q "^VIOLATION" $out/check_${pid}_thorough.txt; then cp $out/check_${pid}_thorough.txt $out/check_$pid.txt; fi
-  fi
-fi
-if [ -z "$hits" ] || { ! grep -q "^VIOLATION" $out/check_$pid.txt && grep -q "no obligation was generated" $out/check_$pid.txt; }; then
-  (cd $V && python3 check.py $pid --tier $tier > $out/check_$pid.txt 2>$out/check_$pid.err; echo "exit=$? (tier $tier, full check; native sweep flagged nothing the restricted runs could decide)" >> $out/check_$pid.txt)
-fi
-eif [ -n "$hits" ]; then
-  (cd $V && VERIF_ONLY="$hits" python3 check.py $pid --tier $tier > $out/check_$pid.txt 2>$out/check_$pid.err; echo "exit=$? (tier $tier, restricted to the harnesses the native sweep flagged: $hits)" >> $out/check_$pid.txt)
-  if ! grep -q "^VIOLATION" $out/check_$pid.txt && [ "$tier" = quick ]; then
-    # the flagged harnesses may belong to the thorough tier only (larger bounds, slow ones)
-    (cd $V && VERIF_ONLY="$hits" python3 check.py $pid --tier thorough > $out/check_${pid}_thorough.txt 2>$out/check_${pid}_thorough.err; echo "exit=$? (tier thorough, restricted to the harnesses the native sweep flagged: $hits)" >> $out/check_${pid}_thorough.txt)
-    if grep -q "^VIOLATION" $out/check_${pid}_thorough.txt; then cp $out/check_${pid}_thorough.txt $out/check_$pid.txt; fi
-  fi
-fi
-if [ -z "$hits" ] || { ! grep -q "^VIOLATION" $out/check_$pid.txt && grep -q "no obligation was generated" $out/check_$pid.txt; }; then
-  (cd $V && python3 check.py $pid --tier $tier > $out/check_$pid.txt 2>$out/check_$pid.err; echo "exit=$? (tier $tier, full check; native sweep flagged nothing the restricted runs could decide)" >> $out/check_$pid.txt)
-fi
-vif [ -n "$hits" ]; then
-  (cd $V && VERIF_ONLY="$hits" python3 check.py $pid --tier $tier > $out/check_$pid.txt 2>$out/check_$pid.err; echo "exit=$? (tier $tier, restricted to the harnesses the native sweep flagged: $hits)" >> $out/check_$pid.txt)
-  if ! grep -q "^VIOLATION" $out/check_$pid.txt && [ "$tier" = quick ]; then
-    # the flagged harnesses may belong to the thorough tier only (larger bounds, slow ones)
-    (cd $V && VERIF_ONLY="$hits" python3 check.py $pid --tier thorough > $out/check_${pid}_thorough.txt 2>$out/check_${pid}_thorough.err; echo "exit=$? (tier thorough, restricted to the harnesses the native sweep flagged: $hits)" >> $out/check_${pid}_thorough.txt)
-    if grep -q "^VIOLATION" $out/check_${pid}_thorough.txt; then cp $out/check_${pid}_thorough.txt $out/check_$pid.txt; fi
-  fi
-fi
-if [ -z "$hits" ] || { ! grep -q "^VIOLATION" $out/check_$pid.txt && grep -q "no obligation was generated" $out/check_$pid.txt; }; then
-  (cd $V && python3 check.py $pid --tier $tier > $out/check_$pid.txt 2>$out/check_$pid.err; echo "exit=$? (tier $tier, full check; native sweep flagged nothing the restricted runs could decide)" >> $out/check_$pid.txt)
-fi
-/if [ -n "$hits" ]; then
-  (cd $V && VERIF_ONLY="$hits" python3 check.py $pid --tier $tier > $out/check_$pid.txt 2>$out/check_$pid.err; echo "exit=$? (tier $tier, restricted to the harnesses the native sweep flagged: $hits)" >> $out/check_$pid.txt)
-  if ! grep -q "^VIOLATION" $out/check_$pid.txt && [ "$tier" = quick ]; then
-    # the flagged harnesses may belong to the thorough tier only (larger bounds, slow ones)
-    (cd $V && VERIF_ONLY="$hits" python3 check.py $pid --tier thorough > $out/check_${pid}_thorough.txt 2>$out/check_${pid}_thorough.err; echo "exit=$? (tier thorough, restricted to the harnesses the native sweep flagged: $hits)" >> $out/check_${pid}_thorough.txt)
-    if grep -q "^VIOLATION" $out/check_${pid}_thorough.txt; then cp $out/check_${pid}_thorough.txt $out/check_$pid.txt; fi
-  fi
-fi
-if [ -z "$hits" ] || { ! grep -q "^VIOLATION" $out/check_$pid.txt && grep -q "no obligation was generated" $out/check_$pid.txt; }; then
-  (cd $V && python3 check.py $pid --tier $tier > $out/check_$pid.txt 2>$out/check_$pid.err; echo "exit=$? (tier $tier, full check; native sweep flagged nothing the restricted runs could decide)" >> $out/check_$pid.txt)
-fi
-nif [ -n "$hits" ]; then
-  (cd $V && VERIF_ONLY="$hits" python3 check.py $pid --tier $tier > $out/check_$pid.txt 2>$out/check_$pid.err; echo "exit=$? (tier $tier, restricted to the harnesses the native sweep flagged: $hits)" >> $out/check_$pid.txt)
-  if ! grep -q "^VIOLATION" $out/check_$pid.txt && [ "$tier" = quick ]; then
-    # the flagged harnesses may belong to the thorough tier only (larger bounds, slow ones)
-    (cd $V && VERIF_ONLY="$hits" python3 check.py $pid --tier thorough > $out/check_${pid}_thorough.txt 2>$out/check_${pid}_thorough.err; echo "exit=$? (tier thorough, restricted to the harnesses the native sweep flagged: $hits)" >> $out/check_${pid}_thorough.txt)
-    if grep -q "^VIOLATION" $out/check_${pid}_thorough.txt; then cp $out/check_${pid}_thorough.txt $out/check_$pid.txt; fi
-  fi
-fi
-if [ -z "$hits" ] || { ! grep -q "^VIOLATION" $out/check_$pid.txt && grep -q "no obligation was generated" $out/check_$pid.txt; }; then
-  (cd $V && python3 check.py $pid --tier $tier > $out/check_$pid.txt 2>$out/check_$pid.err; echo "exit=$? (tier $tier, full check; native sweep flagged nothing the restricted runs could decide)" >> $out/check_$pid.txt)
-fi
-uif [ -n "$hits" ]; then
-  (cd $V && VERIF_ONLY="$hits" python3 check.py $pid --tier $tier > $out/check_$pid.txt 2>$out/check_$pid.err; echo "exit=$? (tier $tier, restricted to the harnesses the native sweep flagged: $hits)" >> $out/check_$pid.txt)
-  if ! grep -q "^VIOLATION" $out/check_$pid.txt && [ "$tier" = quick ]; then
-    # the flagged harnesses may belong to the thorough tier only (larger bounds, slow ones)
-    (cd $V && VERIF_ONLY="$hits" python3 check.py $pid --tier thorough > $out/check_${pid}_thorough.txt 2>$out/check_${pid}_thorough.err; echo "exit=$? (tier thorough, restricted to the harnesses the native sweep flagged: $hits)" >> $out/check_${pid}_thorough.txt)
-    if grep -q "^VIOLATION" $out/check_${pid}_thorough.txt; then cp $out/check_${pid}_thorough.txt $out/check_$pid.txt; fi
-  fi
-fi
-if [ -z "$hits" ] || { ! grep -q "^VIOLATION" $out/check_$pid.txt && grep -q "no obligation was generated" $out/check_$pid.txt; }; then
-  (cd $V && python3 check.py $pid --tier $tier > $out/check_$pid.txt 2>$out/check_$pid.err; echo "exit=$? (tier $tier, full check; native sweep flagged nothing the restricted runs could decide)" >> $out/check_$pid.txt)
-fi
-lif [ -n "$hits" ]; then
-  (cd $V && VERIF_ONLY="$hits" python3 check.py $pid --tier $tier > $out/check_$pid.txt 2>$out/check_$pid.err; echo "exit=$? (tier $tier, restricted to the harnesses the native sweep flagged: $hits)" >> $out/check_$pid.txt)
-  if ! grep -q "^VIOLATION" $out/check_$pid.txt && [ "$tier" = quick ]; then
-    # the flagged harnesses may belong to the thorough tier only (larger bounds, slow ones)
-    (cd $V && VERIF_ONLY="$hits" python3 check.py $pid --tier thorough > $out/check_${pid}_thorough.txt 2>$out/check_${pid}_thorough.err; echo "exit=$? (tier thorough, restricted to the harnesses the native sweep flagged: $hits)" >> $out/check_${pid}_thorough.txt)
-    if grep -q "^VIOLATION" $out/check_${pid}_thorough.txt; then cp $out/check_${pid}_thorough.txt $out/check_$pid.txt; fi
-  fi
-fi
-if [ -z "$hits" ] || { ! grep -q "^VIOLATION" $out/check_$pid.txt && grep -q "no obligation was generated" $out/check_$pid.txt; }; then
-  (cd $V && python3 check.py $pid --tier $tier > $out/check_$pid.txt 2>$out/check_$pid.err; echo "exit=$? (tier $tier, full check; native sweep flagged nothing the restricted runs could decide)" >> $out/check_$pid.txt)
-fi
-lif [ -n "$hits" ]; then
-  (cd $V && VERIF_ONLY="$hits" python3 check.py $pid --tier $tier > $out/check_$pid.txt 2>$out/check_$pid.err; echo "exit=$? (tier $tier, restricted to the harnesses the native sweep flagged: $hits)" >> $out/check_$pid.txt)
-  if ! grep -q "^VIOLATION" $out/check_$pid.txt && [ "$tier" = quick ]; then
-    # the flagged harnesses may belong to the thorough tier only (larger bounds, slow ones)
-    (cd $V && VERIF_ONLY="$hits" python3 check.py $pid --tier thorough > $out/check_${pid}_thorough.txt 2>$out/check_${pid}_thorough.err; echo "exit=$? (tier thorough, restricted to the harnesses the native sweep flagged: $hits)" >> $out/check_${pid}_thorough.txt)
-    if grep -q "^VIOLATION" $out/check_${pid}_thorough.txt; then cp $out/check_${pid}_thorough.txt $out/check_$pid.txt; fi
-  fi
-fi
-if [ -z "$hits" ] || { ! grep -q "^VIOLATION" $out/check_$pid.txt && grep -q "no obligation was generated" $out/check_$pid.txt; }; then
-  (cd $V && python3 check.py $pid --tier $tier > $out/check_$pid.txt 2>$out/check_$pid.err; echo "exit=$? (tier $tier, full check; native sweep flagged nothing the restricted runs could decide)" >> $out/check_$pid.txt)
-fi
-
-if [ -n "$hits" ]; then
-  (cd $V && VERIF_ONLY="$hits" python3 check.py $pid --tier $tier > $out/check_$pid.txt 2>$out/check_$pid.err; echo "exit=$? (tier $tier, restricted to the harnesses the native sweep flagged: $hits)" >> $out/check_$pid.txt)
-  if ! grep -q "^VIOLATION" $out/check_$pid.txt && [ "$tier" = quick ]; then
-    # the flagged harnesses may belong to the thorough tier only (larger bounds, slow ones)
-    (cd $V && VERIF_ONLY="$hits" python3 check.py $pid --tier thorough > $out/check_${pid}_thorough.txt 2>$out/check_${pid}_thorough.err; echo "exit=$? (tier thorough, restricted to the harnesses the native sweep flagged: $hits)" >> $out/check_${pid}_thorough.txt)
-    if grep -q "^VIOLATION" $out/check_${pid}_thorough.txt; then cp $out/check_${pid}_thorough.txt $out/check_$pid.txt; fi
-  fi
-fi
-if [ -z "$hits" ] || { ! grep -q "^VIOLATION" $out/check_$pid.txt && grep -q "no obligation was generated" $out/check_$pid.txt; }; then
-  (cd $V && python3 check.py $pid --tier $tier > $out/check_$pid.txt 2>$out/check_$pid.err; echo "exit=$? (tier $tier, full check; native sweep flagged nothing the restricted runs could decide)" >> $out/check_$pid.txt)
-fi
-gif [ -n "$hits" ]; then
-  (cd $V && VERIF_ONLY="$hits" python3 check.py $pid --tier $tier > $out/check_$pid.txt 2>$out/check_$pid.err; echo "exit=$? (tier $tier, restricted to the harnesses the native sweep flagged: $hits)" >> $out/check_$pid.txt)
-  if ! grep -q "^VIOLATION" $out/check_$pid.txt && [ "$tier" = quick ]; then
-    # the flagged harnesses may belong to the thorough tier only (larger bounds, slow ones)
-    (cd $V && VERIF_ONLY="$hits" python3 check.py $pid --tier thorough > $out/check_${pid}_thorough.txt 2>$out/check_${pid}_thorough.err; echo "exit=$? (tier thorough, restricted to the harnesses the native sweep flagged: $hits)" >> $out/check_${pid}_thorough.txt)
-    if grep -q "^VIOLATION" $out/check_${pid}_thorough.txt; then cp $out/check_${pid}_thorough.txt $out/check_$pid.txt; fi
-  fi
-fi
-if [ -z "$hits" ] || { ! grep -q "^VIOLATION" $out/check_$pid.txt && grep -q "no obligation was generated" $out/check_$pid.txt; }; then
-  (cd $V && python3 check.py $pid --tier $tier > $out/check_$pid.txt 2>$out/check_$pid.err; echo "exit=$? (tier $tier, full check; native sweep flagged nothing the restricted runs could decide)" >> $out/check_$pid.txt)
-fi
-iif [ -n "$hits" ]; then
-  (cd $V && VERIF_ONLY="$hits" python3 check.py $pid --tier $tier > $out/check_$pid.txt 2>$out/check_$pid.err; echo "exit=$? (tier $tier, restricted to the harnesses the native sweep flagged: $hits)" >> $out/check_$pid.txt)
-  if ! grep -q "^VIOLATION" $out/check_$pid.txt && [ "$tier" = quick ]; then
-    # the flagged harnesses may belong to the thorough tier only (larger bounds, slow ones)
-    (cd $V && VERIF_ONLY="$hits" python3 check.py $pid --tier thorough > $out/check_${pid}_thorough.txt 2>$out/check_${pid}_thorough.err; echo "exit=$? (tier thorough, restricted to the harnesses the native sweep flagged: $hits)" >> $out/check_${pid}_thorough.txt)
-    if grep -q "^VIOLATION" $out/check_${pid}_thorough.txt; then cp $out/check_${pid}_thorough.txt $out/check_$pid.txt; fi
-  fi
-fi
-if [ -z "$hits" ] || { ! grep -q "^VIOLATION" $out/check_$pid.txt && grep -q "no obligation was generated" $out/check_$pid.txt; }; then
-  (cd $V && python3 check.py $pid --tier $tier > $out/check_$pid.txt 2>$out/check_$pid.err; echo "exit=$? (tier $tier, full check; native sweep flagged nothing the restricted runs could decide)" >> $out/check_$pid.txt)
-fi
-tif [ -n "$hits" ]; then
-  (cd $V && VERIF_ONLY="$hits" python3 check.py $pid --tier $tier > $out/check_$pid.txt 2>$out/check_$pid.err; echo "exit=$? (tier $tier, restricted to the harnesses the native sweep flagged: $hits)" >> $out/check_$pid.txt)
-  if ! grep -q "^VIOLATION" $out/check_$pid.txt && [ "$tier" = quick ]; then
-    # the flagged harnesses may belong to the thorough tier only (larger bounds, slow ones)
-    (cd $V && VERIF_ONLY="$hits" python3 check.py $pid --tier thorough > $out/check_${pid}_thorough.txt 2>$out/check_${pid}_thorough.err; echo "exit=$? (tier thorough, restricted to the harnesses the native sweep flagged: $hits)" >> $out/check_${pid}_thorough.txt)
-    if grep -q "^VIOLATION" $out/check_${pid}_thorough.txt; then cp $out/check_${pid}_thorough.txt $out/check_$pid.txt; fi
-  fi
-fi
-if [ -z "$hits" ] || { ! grep -q "^VIOLATION" $out/check_$pid.txt && grep -q "no obligation was generated" $out/check_$pid.txt; }; then
-  (cd $V && python3 check.py $pid --tier $tier > $out/check_$pid.txt 2>$out/check_$pid.err; echo "exit=$? (tier $tier, full check; native sweep flagged nothing the restricted runs could decide)" >> $out/check_$pid.txt)
-fi
- if [ -n "$hits" ]; then
-  (cd $V && VERIF_ONLY="$hits" python3 check.py $pid --tier $tier > $out/check_$pid.txt 2>$out/check_$pid.err; echo "exit=$? (tier $tier, restricted to the harnesses the native sweep flagged: $hits)" >> $out/check_$pid.txt)
-  if ! grep -q "^VIOLATION" $out/check_$pid.txt && [ "$tier" = quick ]; then
-    # the flagged harnesses may belong to the thorough tier only (larger bounds, slow ones)
-    (cd $V && VERIF_ONLY="$hits" python3 check.py $pid --tier thorough > $out/check_${pid}_thorough.txt 2>$out/check_${pid}_thorough.err; echo "exit=$? (tier thorough, restricted to the harnesses the native sweep flagged: $hits)" >> $out/check_${pid}_thorough.txt)
-    if grep -q "^VIOLATION" $out/check_${pid}_thorough.txt; then cp $out/check_${pid}_thorough.txt $out/check_$pid.txt; fi
-  fi
-fi
-if [ -z "$hits" ] || { ! grep -q "^VIOLATION" $out/check_$pid.txt && grep -q "no obligation was generated" $out/check_$pid.txt; }; then
-  (cd $V && python3 check.py $pid --tier $tier > $out/check_$pid.txt 2>$out/check_$pid.err; echo "exit=$? (tier $tier, full check; native sweep flagged nothing the restricted runs could decide)" >> $out/check_$pid.txt)
-fi
--if [ -n "$hits" ]; then
-  (cd $V && VERIF_ONLY="$hits" python3 check.py $pid --tier $tier > $out/check_$pid.txt 2>$out/check_$pid.err; echo "exit=$? (tier $tier, restricted to the harnesses the native sweep flagged: $hits)" >> $out/check_$pid.txt)
-  if ! grep -q "^VIOLATION" $out/check_$pid.txt && [ "$tier" = quick ]; then
-    # the flagged harnesses may belong to the thorough tier only (larger bounds, slow ones)
-    (cd $V && VERIF_ONLY="$hits" python3 check.py $pid --tier thorough > $out/check_${pid}_thorough.txt 2>$out/check_${pid}_thorough.err; echo "exit=$? (tier thorough, restricted to the harnesses the native sweep flagged: $hits)" >> $out/check_${pid}_thorough.txt)
-    if grep -q "^VIOLATION" $out/check_${pid}_thorough.txt; then cp $out/check_${pid}_thorough.txt $out/check_$pid.txt; fi
-  fi
-fi
-if [ -z "$hits" ] || { ! grep -q "^VIOLATION" $out/check_$pid.txt && grep -q "no obligation was generated" $out/check_$pid.txt; }; then
-  (cd $V && python3 check.py $pid --tier $tier > $out/check_$pid.txt 2>$out/check_$pid.err; echo "exit=$? (tier $tier, full check; native sweep flagged nothing the restricted runs could decide)" >> $out/check_$pid.txt)
-fi
-Cif [ -n "$hits" ]; then
-  (cd $V && VERIF_ONLY="$hits" python3 check.py $pid --tier $tier > $out/check_$pid.txt 2>$out/check_$pid.err; echo "exit=$? (tier $tier, restricted to the harnesses the native sweep flagged: $hits)" >> $out/check_$pid.txt)
-  if ! grep -q "^VIOLATION" $out/check_$pid.txt && [ "$tier" = quick ]; then
-    # the flagged harnesses may belong to the thorough tier only (larger bounds, slow ones)
-    (cd $V && VERIF_ONLY="$hits" python3 check.py $pid --tier thorough > $out/check_${pid}_thorough.txt 2>$out/check_${pid}_thorough.err; echo "exit=$? (tier thorough, restricted to the harnesses the native sweep flagged: $hits)" >> $out/check_${pid}_thorough.txt)
-    if grep -q "^VIOLATION" $out/check_${pid}_thorough.txt; then cp $out/check_${pid}_thorough.txt $out/check_$pid.txt; fi
-  fi
-fi
-if [ -z "$hits" ] || { ! grep -q "^VIOLATION" $out/check_$pid.txt && grep -q "no obligation was generated" $out/check_$pid.txt; }; then
-  (cd $V && python3 check.py $pid --tier $tier > $out/check_$pid.txt 2>$out/check_$pid.err; echo "exit=$? (tier $tier, full check; native sweep flagged nothing the restricted runs could decide)" >> $out/check_$pid.txt)
-fi
- if [ -n "$hits" ]; then
-  (cd $V && VERIF_ONLY="$hits" python3 check.py $pid --tier $tier > $out/check_$pid.txt 2>$out/check_$pid.err; echo "exit=$? (tier $tier, restricted to the harnesses the native sweep flagged: $hits)" >> $out/check_$pid.txt)
-  if ! grep -q "^VIOLATION" $out/check_$pid.txt && [ "$tier" = quick ]; then
-    # the flagged harnesses may belong to the thorough tier only (larger bounds, slow ones)
-    (cd $V && VERIF_ONLY="$hits" python3 check.py $pid --tier thorough > $out/check_${pid}_thorough.txt 2>$out/check_${pid}_thorough.err; echo "exit=$? (tier thorough, restricted to the harnesses the native sweep flagged: $hits)" >> $out/check_${pid}_thorough.txt)
-    if grep -q "^VIOLATION" $out/check_${pid}_thorough.txt; then cp $out/check_${pid}_thorough.txt $out/check_$pid.txt; fi
-  fi
-fi
-if [ -z "$hits" ] || { ! grep -q "^VIOLATION" $out/check_$pid.txt && grep -q "no obligation was generated" $out/check_$pid.txt; }; then
-  (cd $V && python3 check.py $pid --tier $tier > $out/check_$pid.txt 2>$out/check_$pid.err; echo "exit=$? (tier $tier, full check; native sweep flagged nothing the restricted runs could decide)" >> $out/check_$pid.txt)
-fi
-$if [ -n "$hits" ]; then
-  (cd $V && VERIF_ONLY="$hits" python3 check.py $pid --tier $tier > $out/check_$pid.txt 2>$out/check_$pid.err; echo "exit=$? (tier $tier, restricted to the harnesses the native sweep flagged: $hits)" >> $out/check_$pid.txt)
-  if ! grep -q "^VIOLATION" $out/check_$pid.txt && [ "$tier" = quick ]; then
-    # the flagged harnesses may belong to the thorough tier only (larger bounds, slow ones)
-    (cd $V && VERIF_ONLY="$hits" python3 check.py $pid --tier thorough > $out/check_${pid}_thorough.txt 2>$out/check_${pid}_thorough.err; echo "exit=$? (tier thorough, restricted to the harnesses the native sweep flagged: $hits)" >> $out/check_${pid}_thorough.txt)
-    if grep -q "^VIOLATION" $out/check_${pid}_thorough.txt; then cp $out/check_${pid}_thorough.txt $out/check_$pid.txt; fi
-  fi
-fi
-if [ -z "$hits" ] || { ! grep -q "^VIOLATION" $out/check_$pid.txt && grep -q "no obligation was generated" $out/check_$pid.txt; }; then
-  (cd $V && python3 check.py $pid --tier $tier > $out/check_$pid.txt 2>$out/check_$pid.err; echo "exit=$? (tier $tier, full check; native sweep flagged nothing the restricted runs could decide)" >> $out/check_$pid.txt)
-fi
-bif [ -n "$hits" ]; then
-  (cd $V && VERIF_ONLY="$hits" python3 check.py $pid --tier $tier > $out/check_$pid.txt 2>$out/check_$pid.err; echo "exit=$? (tier $tier, restricted to the harnesses the native sweep flagged: $hits)" >> $out/check_$pid.txt)
-  if ! grep -q "^VIOLATION" $out/check_$pid.txt && [ "$tier" = quick ]; then
-    # the flagged harnesses may belong to the thorough tier only (larger bounds, slow ones)
-    (cd $V && VERIF_ONLY="$hits" python3 check.py $pid --tier thorough > $out/check_${pid}_thorough.txt 2>$out/check_${pid}_thorough.err; echo "exit=$? (tier thorough, restricted to the harnesses the native sweep flagged: $hits)" >> $out/check_${pid}_thorough.txt)
-    if grep -q "^VIOLATION" $out/check_${pid}_thorough.txt; then cp $out/check_${pid}_thorough.txt $out/check_$pid.txt; fi
-  fi
-fi
-if [ -z "$hits" ] || { ! grep -q "^VIOLATION" $out/check_$pid.txt && grep -q "no obligation was generated" $out/check_$pid.txt; }; then
-  (cd $V && python3 check.py $pid --tier $tier > $out/check_$pid.txt 2>$out/check_$pid.err; echo "exit=$? (tier $tier, full check; native sweep flagged nothing the restricted runs could decide)" >> $out/check_$pid.txt)
-fi
-aif [ -n "$hits" ]; then
-  (cd $V && VERIF_ONLY="$hits" python3 check.py $pid --tier $tier > $out/check_$pid.txt 2>$out/check_$pid.err; echo "exit=$? (tier $tier, restricted to the harnesses the native sweep flagged: $hits)" >> $out/check_$pid.txt)
-  if ! grep -q "^VIOLATION" $out/check_$pid.txt && [ "$tier" = quick ]; then
-    # the flagged harnesses may belong to the thorough tier only (larger bounds, slow ones)
-    (cd $V && VERIF_ONLY="$hits" python3 check.py $pid --tier thorough > $out/check_${pid}_thorough.txt 2>$out/check_${pid}_thorough.err; echo "exit=$? (tier thorough, restricted to the harnesses the native sweep flagged: $hits)" >> $out/check_${pid}_thorough.txt)
-    if grep -q "^VIOLATION" $out/check_${pid}_thorough.txt; then cp $out/check_${pid}_thorough.txt $out/check_$pid.txt; fi
-  fi
-fi
-if [ -z "$hits" ] || { ! grep -q "^VIOLATION" $out/check_$pid.txt && grep -q "no obligation was generated" $out/check_$pid.txt; }; then
-  (cd $V && python3 check.py $pid --tier $tier > $out/check_$pid.txt 2>$out/check_$pid.err; echo "exit=$? (tier $tier, full check; native sweep flagged nothing the restricted runs could decide)" >> $out/check_$pid.txt)
-fi
-sif [ -n "$hits" ]; then
-  (cd $V && VERIF_ONLY="$hits" python3 check.py $pid --tier $tier > $out/check_$pid.txt 2>$out/check_$pid.err; echo "exit=$? (tier $tier, restricted to the harnesses the native sweep flagged: $hits)" >> $out/check_$pid.txt)
-  if ! grep -q "^VIOLATION" $out/check_$pid.txt && [ "$tier" = quick ]; then
-    # the flagged harnesses may belong to the thorough tier only (larger bounds, slow ones)
-    (cd $V && VERIF_ONLY="$hits" python3 check.py $pid --tier thorough > $out/check_${pid}_thorough.txt 2>$out/check_${pid}_thorough.err; echo "exit=$? (tier thorough, restricted to the harnesses the native sweep flagged: $hits)" >> $out/check_${pid}_thorough.txt)
-    if grep -q "^VIOLATION" $out/check_${pid}_thorough.txt; then cp $out/check_${pid}_thorough.txt $out/check_$pid.txt; fi
-  fi
-fi
-if [ -z "$hits" ] || { ! grep -q "^VIOLATION" $out/check_$pid.txt && grep -q "no obligation was generated" $out/check_$pid.txt; }; then
-  (cd $V && python3 check.py $pid --tier $tier > $out/check_$pid.txt 2>$out/check_$pid.err; echo "exit=$? (tier $tier, full check; native sweep flagged nothing the restricted runs could decide)" >> $out/check_$pid.txt)
-fi
-eif [ -n "$hits" ]; then
-  (cd $V && VERIF_ONLY="$hits" python3 check.py $pid --tier $tier > $out/check_$pid.txt 2>$out/check_$pid.err; echo "exit=$? (tier $tier, restricted to the harnesses the native sweep flagged: $hits)" >> $out/check_$pid.txt)
-  if ! grep -q "^VIOLATION" $out/check_$pid.txt && [ "$tier" = quick ]; then
-    # the flagged harnesses may belong to the thorough tier only (larger bounds, slow ones)
-    (cd $V && VERIF_ONLY="$hits" python3 check.py $pid --tier thorough > $out/check_${pid}_thorough.txt 2>$out/check_${pid}_thorough.err; echo "exit=$? (tier thorough, restricted to the harnesses the native sweep flagged: $hits)" >> $out/check_${pid}_thorough.txt)
-    if grep -q "^VIOLATION" $out/check_${pid}_thorough.txt; then cp $out/check_${pid}_thorough.txt $out/check_$pid.txt; fi
-  fi
-fi
-if [ -z "$hits" ] || { ! grep -q "^VIOLATION" $out/check_$pid.txt && grep -q "no obligation was generated" $out/check_$pid.txt; }; then
-  (cd $V && python3 check.py $pid --tier $tier > $out/check_$pid.txt 2>$out/check_$pid.err; echo "exit=$? (tier $tier, full check; native sweep flagged nothing the restricted runs could decide)" >> $out/check_$pid.txt)
-fi
- if [ -n "$hits" ]; then
-  (cd $V && VERIF_ONLY="$hits" python3 check.py $pid --tier $tier > $out/check_$pid.txt 2>$out/check_$pid.err; echo "exit=$? (tier $tier, restricted to the harnesses the native sweep flagged: $hits)" >> $out/check_$pid.txt)
-  if ! grep -q "^VIOLATION" $out/check_$pid.txt && [ "$tier" = quick ]; then
-    # the flagged harnesses may belong to the thorough tier only (larger bounds, slow ones)
-    (cd $V && VERIF_ONLY="$hits" python3 check.py $pid --tier thorough > $out/check_${pid}_thorough.txt 2>$out/check_${pid}_thorough.err; echo "exit=$? (tier thorough, restricted to the harnesses the native sweep flagged: $hits)" >> $out/check_${pid}_thorough.txt)
-    if grep -q "^VIOLATION" $out/check_${pid}_thorough.txt; then cp $out/check_${pid}_thorough.txt $out/check_$pid.txt; fi
-  fi
-fi
-if [ -z "$hits" ] || { ! grep -q "^VIOLATION" $out/check_$pid.txt && grep -q "no obligation was generated" $out/check_$pid.txt; }; then
-  (cd $V && python3 check.py $pid --tier $tier > $out/check_$pid.txt 2>$out/check_$pid.err; echo "exit=$? (tier $tier, full check; native sweep flagged nothing the restricted runs could decide)" >> $out/check_$pid.txt)
-fi
-wif [ -n "$hits" ]; then
-  (cd $V && VERIF_ONLY="$hits" python3 check.py $pid --tier $tier > $out/check_$pid.txt 2>$out/check_$pid.err; echo "exit=$? (tier $tier, restricted to the harnesses the native sweep flagged: $hits)" >> $out/check_$pid.txt)
-  if ! grep -q "^VIOLATION" $out/check_$pid.txt && [ "$tier" = quick ]; then
-    # the flagged harnesses may belong to the thorough tier only (larger bounds, slow ones)
-    (cd $V && VERIF_ONLY="$hits" python3 check.py $pid --tier thorough > $out/check_${pid}_thorough.txt 2>$out/check_${pid}_thorough.err; echo "exit=$? (tier thorough, restricted to the harnesses the native sweep flagged: $hits)" >> $out/check_${pid}_thorough.txt)
-    if grep -q "^VIOLATION" $out/check_${pid}_thorough.txt; then cp $out/check_${pid}_thorough.txt $out/check_$pid.txt; fi
-  fi
-fi
-if [ -z "$hits" ] || { ! grep -q "^VIOLATION" $out/check_$pid.txt && grep -q "no obligation was generated" $out/check_$pid.txt; }; then
-  (cd $V && python3 check.py $pid --tier $tier > $out/check_$pid.txt 2>$out/check_$pid.err; echo "exit=$? (tier $tier, full check; native sweep flagged nothing the restricted runs could decide)" >> $out/check_$pid.txt)
-fi
-oif [ -n "$hits" ]; then
-  (cd $V && VERIF_ONLY="$hits" python3 check.py $pid --tier $tier > $out/check_$pid.txt 2>$out/check_$pid.err; echo "exit=$? (tier $tier, restricted to the harnesses the native sweep flagged: $hits)" >> $out/check_$pid.txt)
-  if ! grep -q "^VIOLATION" $out/check_$pid.txt && [ "$tier" = quick ]; then
-    # the flagged harnesses may belong to the thorough tier only (larger bounds, slow ones)
-    (cd $V && VERIF_ONLY="$hits" python3 check.py $pid --tier thorough > $out/check_${pid}_thorough.txt 2>$out/check_${pid}_thorough.err; echo "exit=$? (tier thorough, restricted to the harnesses the native sweep flagged: $hits)" >> $out/check_${pid}_thorough.txt)
-    if grep -q "^VIOLATION" $out/check_${pid}_thorough.txt; then cp $out/check_${pid}_thorough.txt $out/check_$pid.txt; fi
-  fi
-fi
-if [ -z "$hits" ] || { ! grep -q "^VIOLATION" $out/check_$pid.txt && grep -q "no obligation was generated" $out/check_$pid.txt; }; then
-  (cd $V && python3 check.py $pid --tier $tier > $out/check_$pid.txt 2>$out/check_$pid.err; echo "exit=$? (tier $tier, full check; native sweep flagged nothing the restricted runs could decide)" >> $out/check_$pid.txt)
-fi
-rif [ -n "$hits" ]; then
-  (cd $V && VERIF_ONLY="$hits" python3 check.py $pid --tier $tier > $out/check_$pid.txt 2>$out/check_$pid.err; echo "exit=$? (tier $tier, restricted to the harnesses the native sweep flagged: $hits)" >> $out/check_$pid.txt)
-  if ! grep -q "^VIOLATION" $out/check_$pid.txt && [ "$tier" = quick ]; then
-    # the flagged harnesses may belong to the thorough tier only (larger bounds, slow ones)
-    (cd $V && VERIF_ONLY="$hits" python3 check.py $pid --tier thorough > $out/check_${pid}_thorough.txt 2>$out/check_${pid}_thorough.err; echo "exit=$? (tier thorough, restricted to the harnesses the native sweep flagged: $hits)" >> $out/check_${pid}_thorough.txt)
-    if grep -q "^VIOLATION" $out/check_${pid}_thorough.txt; then cp $out/check_${pid}_thorough.txt $out/check_$pid.txt; fi
-  fi
-fi
-if [ -z "$hits" ] || { ! grep -q "^VIOLATION" $out/check_$pid.txt && grep -q "no obligation was generated" $out/check_$pid.txt; }; then
-  (cd $V && python3 check.py $pid --tier $tier > $out/check_$pid.txt 2>$out/check_$pid.err; echo "exit=$? (tier $tier, full check; native sweep flagged nothing the restricted runs could decide)" >> $out/check_$pid.txt)
-fi
-kif [ -n "$hits" ]; then
-  (cd $V && VERIF_ONLY="$hits" python3 check.py $pid --tier $tier > $out/check_$pid.txt 2>$out/check_$pid.err; echo "exit=$? (tier $tier, restricted to the harnesses the native sweep flagged: $hits)" >> $out/check_$pid.txt)
-  if ! grep -q "^VIOLATION" $out/check_$pid.txt && [ "$tier" = quick ]; then
-    # the flagged harnesses may belong to the thorough tier only (larger bounds, slow ones)
-    (cd $V && VERIF_ONLY="$hits" python3 check.py $pid --tier thorough > $out/check_${pid}_thorough.txt 2>$out/check_${pid}_thorough.err; echo "exit=$? (tier thorough, restricted to the harnesses the native sweep flagged: $hits)" >> $out/check_${pid}_thorough.txt)
-    if grep -q "^VIOLATION" $out/check_${pid}_thorough.txt; then cp $out/check_${pid}_thorough.txt $out/check_$pid.txt; fi
-  fi
-fi
-if [ -z "$hits" ] || { ! grep -q "^VIOLATION" $out/check_$pid.txt && grep -q "no obligation was generated" $out/check_$pid.txt; }; then
-  (cd $V && python3 check.py $pid --tier $tier > $out/check_$pid.txt 2>$out/check_$pid.err; echo "exit=$? (tier $tier, full check; native sweep flagged nothing the restricted runs could decide)" >> $out/check_$pid.txt)
-fi
-tif [ -n "$hits" ]; then
-  (cd $V && VERIF_ONLY="$hits" python3 check.py $pid --tier $tier > $out/check_$pid.txt 2>$out/check_$pid.err; echo "exit=$? (tier $tier, restricted to the harnesses the native sweep flagged: $hits)" >> $out/check_$pid.txt)
-  if ! grep -q "^VIOLATION" $out/check_$pid.txt && [ "$tier" = quick ]; then
-    # the flagged harnesses may belong to the thorough tier only (larger bounds, slow ones)
-    (cd $V && VERIF_ONLY="$hits" python3 check.py $pid --tier thorough > $out/check_${pid}_thorough.txt 2>$out/check_${pid}_thorough.err; echo "exit=$? (tier thorough, restricted to the harnesses the native sweep flagged: $hits)" >> $out/check_${pid}_thorough.txt)
-    if grep -q "^VIOLATION" $out/check_${pid}_thorough.txt; then cp $out/check_${pid}_thorough.txt $out/check_$pid.txt; fi
-  fi
-fi
-if [ -z "$hits" ] || { ! grep -q "^VIOLATION" $out/check_$pid.txt && grep -q "no obligation was generated" $out/check_$pid.txt; }; then
-  (cd $V && python3 check.py $pid --tier $tier > $out/check_$pid.txt 2>$out/check_$pid.err; echo "exit=$? (tier $tier, full check; native sweep flagged nothing the restricted runs could decide)" >> $out/check_$pid.txt)
-fi
-rif [ -n "$hits" ]; then
-  (cd $V && VERIF_ONLY="$hits" python3 check.py $pid --tier $tier > $out/check_$pid.txt 2>$out/check_$pid.err; echo "exit=$? (tier $tier, restricted to the harnesses the native sweep flagged: $hits)" >> $out/check_$pid.txt)
-  if ! grep -q "^VIOLATION" $out/check_$pid.txt && [ "$tier" = quick ]; then
-    # the flagged harnesses may belong to the thorough tier only (larger bounds, slow ones)
-    (cd $V && VERIF_ONLY="$hits" python3 check.py $pid --tier thorough > $out/check_${pid}_thorough.txt 2>$out/check_${pid}_thorough.err; echo "exit=$? (tier thorough, restricted to the harnesses the native sweep flagged: $hits)" >> $out/check_${pid}_thorough.txt)
-    if grep -q "^VIOLATION" $out/check_${pid}_thorough.txt; then cp $out/check_${pid}_thorough.txt $out/check_$pid.txt; fi
-  fi
-fi
-if [ -z "$hits" ] || { ! grep -q "^VIOLATION" $out/check_$pid.txt && grep -q "no obligation was generated" $out/check_$pid.txt; }; then
-  (cd $V && python3 check.py $pid --tier $tier > $out/check_$pid.txt 2>$out/check_$pid.err; echo "exit=$? (tier $tier, full check; native sweep flagged nothing the restricted runs could decide)" >> $out/check_$pid.txt)
-fi
-eif [ -n "$hits" ]; then
-  (cd $V && VERIF_ONLY="$hits" python3 check.py $pid --tier $tier > $out/check_$pid.txt 2>$out/check_$pid.err; echo "exit=$? (tier $tier, restricted to the harnesses the native sweep flagged: $hits)" >> $out/check_$pid.txt)
-  if ! grep -q "^VIOLATION" $out/check_$pid.txt && [ "$tier" = quick ]; then
-    # the flagged harnesses may belong to the thorough tier only (larger bounds, slow ones)
-    (cd $V && VERIF_ONLY="$hits" python3 check.py $pid --tier thorough > $out/check_${pid}_thorough.txt 2>$out/check_${pid}_thorough.err; echo "exit=$? (tier thorough, restricted to the harnesses the native sweep flagged: $hits)" >> $out/check_${pid}_thorough.txt)
-    if grep -q "^VIOLATION" $out/check_${pid}_thorough.txt; then cp $out/check_${pid}_thorough.txt $out/check_$pid.txt; fi
-  fi
-fi
-if [ -z "$hits" ] || { ! grep -q "^VIOLATION" $out/check_$pid.txt && grep -q "no obligation was generated" $out/check_$pid.txt; }; then
-  (cd $V && python3 check.py $pid --tier $tier > $out/check_$pid.txt 2>$out/check_$pid.err; echo "exit=$? (tier $tier, full check; native sweep flagged nothing the restricted runs could decide)" >> $out/check_$pid.txt)
-fi
-eif [ -n "$hits" ]; then
-  (cd $V && VERIF_ONLY="$hits" python3 check.py $pid --tier $tier > $out/check_$pid.txt 2>$out/check_$pid.err; echo "exit=$? (tier $tier, restricted to the harnesses the native sweep flagged: $hits)" >> $out/check_$pid.txt)
-  if ! grep -q "^VIOLATION" $out/check_$pid.txt && [ "$tier" = quick ]; then
-    # the flagged harnesses may belong to the thorough tier only (larger bounds, slow ones)
-    (cd $V && VERIF_ONLY="$hits" python3 check.py $pid --tier thorough > $out/check_${pid}_thorough.txt 2>$out/check_${pid}_thorough.err; echo "exit=$? (tier thorough, restricted to the harnesses the native sweep flagged: $hits)" >> $out/check_${pid}_thorough.txt)
-    if grep -q "^VIOLATION" $out/check_${pid}_thorough.txt; then cp $out/check_${pid}_thorough.txt $out/check_$pid.txt; fi
-  fi
-fi
-if [ -z "$hits" ] || { ! grep -q "^VIOLATION" $out/check_$pid.txt && grep -q "no obligation was generated" $out/check_$pid.txt; }; then
-  (cd $V && python3 check.py $pid --tier $tier > $out/check_$pid.txt 2>$out/check_$pid.err; echo "exit=$? (tier $tier, full check; native sweep flagged nothing the restricted runs could decide)" >> $out/check_$pid.txt)
-fi
- if [ -n "$hits" ]; then
-  (cd $V && VERIF_ONLY="$hits" python3 check.py $pid --tier $tier > $out/check_$pid.txt 2>$out/check_$pid.err; echo "exit=$? (tier $tier, restricted to the harnesses the native sweep flagged: $hits)" >> $out/check_$pid.txt)
-  if ! grep -q "^VIOLATION" $out/check_$pid.txt && [ "$tier" = quick ]; then
-    # the flagged harnesses may belong to the thorough tier only (larger bounds, slow ones)
-    (cd $V && VERIF_ONLY="$hits" python3 check.py $pid --tier thorough > $out/check_${pid}_thorough.txt 2>$out/check_${pid}_thorough.err; echo "exit=$? (tier thorough, restricted to the harnesses the native sweep flagged: $hits)" >> $out/check_${pid}_thorough.txt)
-    if grep -q "^VIOLATION" $out/check_${pid}_thorough.txt; then cp $out/check_${pid}_thorough.txt $out/check_$pid.txt; fi
-  fi
-fi
-if [ -z "$hits" ] || { ! grep -q "^VIOLATION" $out/check_$pid.txt && grep -q "no obligation was generated" $out/check_$pid.txt; }; then
-  (cd $V && python3 check.py $pid --tier $tier > $out/check_$pid.txt 2>$out/check_$pid.err; echo "exit=$? (tier $tier, full check; native sweep flagged nothing the restricted runs could decide)" >> $out/check_$pid.txt)
-fi
-aif [ -n "$hits" ]; then
-  (cd $V && VERIF_ONLY="$hits" python3 check.py $pid --tier $tier > $out/check_$pid.txt 2>$out/check_$pid.err; echo "exit=$? (tier $tier, restricted to the harnesses the native sweep flagged: $hits)" >> $out/check_$pid.txt)
-  if ! grep -q "^VIOLATION" $out/check_$pid.txt && [ "$tier" = quick ]; then
-    # the flagged harnesses may belong to the thorough tier only (larger bounds, slow ones)
-    (cd $V && VERIF_ONLY="$hits" python3 check.py $pid --tier thorough > $out/check_${pid}_thorough.txt 2>$out/check_${pid}_thorough.err; echo "exit=$? (tier thorough, restricted to the harnesses the native sweep flagged: $hits)" >> $out/check_${pid}_thorough.txt)
-    if grep -q "^VIOLATION" $out/check_${pid}_thorough.txt; then cp $out/check_${pid}_thorough.txt $out/check_$pid.txt; fi
-  fi
-fi
-if [ -z "$hits" ] || { ! grep -q "^VIOLATION" $out/check_$pid.txt && grep -q "no obligation was generated" $out/check_$pid.txt; }; then
-  (cd $V && python3 check.py $pid --tier $tier > $out/check_$pid.txt 2>$out/check_$pid.err; echo "exit=$? (tier $tier, full check; native sweep flagged nothing the restricted runs could decide)" >> $out/check_$pid.txt)
-fi
-dif [ -n "$hits" ]; then
-  (cd $V && VERIF_ONLY="$hits" python3 check.py $pid --tier $tier > $out/check_$pid.txt 2>$out/check_$pid.err; echo "exit=$? (tier $tier, restricted to the harnesses the native sweep flagged: $hits)" >> $out/check_$pid.txt)
-  if ! grep -q "^VIOLATION" $out/check_$pid.txt && [ "$tier" = quick ]; then
-    # the flagged harnesses may belong to the thorough tier only (larger bounds, slow ones)
-    (cd $V && VERIF_ONLY="$hits" python3 check.py $pid --tier thorough > $out/check_${pid}_thorough.txt 2>$out/check_${pid}_thorough.err; echo "exit=$? (tier thorough, restricted to the harnesses the native sweep flagged: $hits)" >> $out/check_${pid}_thorough.txt)
-    if grep -q "^VIOLATION" $out/check_${pid}_thorough.txt; then cp $out/check_${pid}_thorough.txt $out/check_$pid.txt; fi
-  fi
-fi
-if [ -z "$hits" ] || { ! grep -q "^VIOLATION" $out/check_$pid.txt && grep -q "no obligation was generated" $out/check_$pid.txt; }; then
-  (cd $V && python3 check.py $pid --tier $tier > $out/check_$pid.txt 2>$out/check_$pid.err; echo "exit=$? (tier $tier, full check; native sweep flagged nothing the restricted runs could decide)" >> $out/check_$pid.txt)
-fi
-dif [ -n "$hits" ]; then
-  (cd $V && VERIF_ONLY="$hits" python3 check.py $pid --tier $tier > $out/check_$pid.txt 2>$out/check_$pid.err; echo "exit=$? (tier $tier, restricted to the harnesses the native sweep flagged: $hits)" >> $out/check_$pid.txt)
-  if ! grep -q "^VIOLATION" $out/check_$pid.txt && [ "$tier" = quick ]; then
-    # the flagged harnesses may belong to the thorough tier only (larger bounds, slow ones)
-    (cd $V && VERIF_ONLY="$hits" python3 check.py $pid --tier thorough > $out/check_${pid}_thorough.txt 2>$out/check_${pid}_thorough.err; echo "exit=$? (tier thorough, restricted to the harnesses the native sweep flagged: $hits)" >> $out/check_${pid}_thorough.txt)
-    if grep -q "^VIOLATION" $out/check_${pid}_thorough.txt; then cp $out/check_${pid}_thorough.txt $out/check_$pid.txt; fi
-  fi
-fi
-if [ -z "$hits" ] || { ! grep -q "^VIOLATION" $out/check_$pid.txt && grep -q "no obligation was generated" $out/check_$pid.txt; }; then
-  (cd $V && python3 check.py $pid --tier $tier > $out/check_$pid.txt 2>$out/check_$pid.err; echo "exit=$? (tier $tier, full check; native sweep flagged nothing the restricted runs could decide)" >> $out/check_$pid.txt)
-fi
- if [ -n "$hits" ]; then
-  (cd $V && VERIF_ONLY="$hits" python3 check.py $pid --tier $tier > $out/check_$pid.txt 2>$out/check_$pid.err; echo "exit=$? (tier $tier, restricted to the harnesses the native sweep flagged: $hits)" >> $out/check_$pid.txt)
-  if ! grep -q "^VIOLATION" $out/check_$pid.txt && [ "$tier" = quick ]; then
-    # the flagged harnesses may belong to the thorough tier only (larger bounds, slow ones)
-    (cd $V && VERIF_ONLY="$hits" python3 check.py $pid --tier thorough > $out/check_${pid}_thorough.txt 2>$out/check_${pid}_thorough.err; echo "exit=$? (tier thorough, restricted to the harnesses the native sweep flagged: $hits)" >> $out/check_${pid}_thorough.txt)
-    if grep -q "^VIOLATION" $out/check_${pid}_thorough.txt; then cp $out/check_${pid}_thorough.txt $out/check_$pid.txt; fi
-  fi
-fi
-if [ -z "$hits" ] || { ! grep -q "^VIOLATION" $out/check_$pid.txt && grep -q "no obligation was generated" $out/check_$pid.txt; }; then
-  (cd $V && python3 check.py $pid --tier $tier > $out/check_$pid.txt 2>$out/check_$pid.err; echo "exit=$? (tier $tier, full check; native sweep flagged nothing the restricted runs could decide)" >> $out/check_$pid.txt)
-fi
--if [ -n "$hits" ]; then
-  (cd $V && VERIF_ONLY="$hits" python3 check.py $pid --tier $tier > $out/check_$pid.txt 2>$out/check_$pid.err; echo "exit=$? (tier $tier, restricted to the harnesses the native sweep flagged: $hits)" >> $out/check_$pid.txt)
-  if ! grep -q "^VIOLATION" $out/check_$pid.txt && [ "$tier" = quick ]; then
-    # the flagged harnesses may belong to the thorough tier only (larger bounds, slow ones)
-    (cd $V && VERIF_ONLY="$hits" python3 check.py $pid --tier thorough > $out/check_${pid}_thorough.txt 2>$out/check_${pid}_thorough.err; echo "exit=$? (tier thorough, restricted to the harnesses the native sweep flagged: $hits)" >> $out/check_${pid}_thorough.txt)
-    if grep -q "^VIOLATION" $out/check_${pid}_thorough.txt; then cp $out/check_${pid}_thorough.txt $out/check_$pid.txt; fi
-  fi
-fi
-if [ -z "$hits" ] || { ! grep -q "^VIOLATION" $out/check_$pid.txt && grep -q "no obligation was generated" $out/check_$pid.txt; }; then
-  (cd $V && python3 check.py $pid --tier $tier > $out/check_$pid.txt 2>$out/check_$pid.err; echo "exit=$? (tier $tier, full check; native sweep flagged nothing the restricted runs could decide)" >> $out/check_$pid.txt)
-fi
--if [ -n "$hits" ]; then
-  (cd $V && VERIF_ONLY="$hits" python3 check.py $pid --tier $tier > $out/check_$pid.txt 2>$out/check_$pid.err; echo "exit=$? (tier $tier, restricted to the harnesses the native sweep flagged: $hits)" >> $out/check_$pid.txt)
-  if ! grep -q "^VIOLATION" $out/check_$pid.txt && [ "$tier" = quick ]; then
-    # the flagged harnesses may belong to the thorough tier only (larger bounds, slow ones)
-    (cd $V && VERIF_ONLY="$hits" python3 check.py $pid --tier thorough > $out/check_${pid}_thorough.txt 2>$out/check_${pid}_thorough.err; echo "exit=$? (tier thorough, restricted to the harnesses the native sweep flagged: $hits)" >> $out/check_${pid}_thorough.txt)
-    if grep -q "^VIOLATION" $out/check_${pid}_thorough.txt; then cp $out/check_${pid}_thorough.txt $out/check_$pid.txt; fi
-  fi
-fi
-if [ -z "$hits" ] || { ! grep -q "^VIOLATION" $out/check_$pid.txt && grep -q "no obligation was generated" $out/check_$pid.txt; }; then
-  (cd $V && python3 check.py $pid --tier $tier > $out/check_$pid.txt 2>$out/check_$pid.err; echo "exit=$? (tier $tier, full check; native sweep flagged nothing the restricted runs could decide)" >> $out/check_$pid.txt)
-fi
-dif [ -n "$hits" ]; then
-  (cd $V && VERIF_ONLY="$hits" python3 check.py $pid --tier $tier > $out/check_$pid.txt 2>$out/check_$pid.err; echo "exit=$? (tier $tier, restricted to the harnesses the native sweep flagged: $hits)" >> $out/check_$pid.txt)
-  if ! grep -q "^VIOLATION" $out/check_$pid.txt && [ "$tier" = quick ]; then
-    # the flagged harnesses may belong to the thorough tier only (larger bounds, slow ones)
-    (cd $V && VERIF_ONLY="$hits" python3 check.py $pid --tier thorough > $out/check_${pid}_thorough.txt 2>$out/check_${pid}_thorough.err; echo "exit=$? (tier thorough, restricted to the harnesses the native sweep flagged: $hits)" >> $out/check_${pid}_thorough.txt)
-    if grep -q "^VIOLATION" $out/check_${pid}_thorough.txt; then cp $out/check_${pid}_thorough.txt $out/check_$pid.txt; fi
-  fi
-fi
-if [ -z "$hits" ] || { ! grep -q "^VIOLATION" $out/check_$pid.txt && grep -q "no obligation was generated" $out/check_$pid.txt; }; then
-  (cd $V && python3 check.py $pid --tier $tier > $out/check_$pid.txt 2>$out/check_$pid.err; echo "exit=$? (tier $tier, full check; native sweep flagged nothing the restricted runs could decide)" >> $out/check_$pid.txt)
-fi
-eif [ -n "$hits" ]; then
-  (cd $V && VERIF_ONLY="$hits" python3 check.py $pid --tier $tier > $out/check_$pid.txt 2>$out/check_$pid.err; echo "exit=$? (tier $tier, restricted to the harnesses the native sweep flagged: $hits)" >> $out/check_$pid.txt)
-  if ! grep -q "^VIOLATION" $out/check_$pid.txt && [ "$tier" = quick ]; then
-    # the flagged harnesses may belong to the thorough tier only (larger bounds, slow ones)
-    (cd $V && VERIF_ONLY="$hits" python3 check.py $pid --tier thorough > $out/check_${pid}_thorough.txt 2>$out/check_${pid}_thorough.err; echo "exit=$? (tier thorough, restricted to the harnesses the native sweep flagged: $hits)" >> $out/check_${pid}_thorough.txt)
-    if grep -q "^VIOLATION" $out/check_${pid}_thorough.txt; then cp $out/check_${pid}_thorough.txt $out/check_$pid.txt; fi
-  fi
-fi
-if [ -z "$hits" ] || { ! grep -q "^VIOLATION" $out/check_$pid.txt && grep -q "no obligation was generated" $out/check_$pid.txt; }; then
-  (cd $V && python3 check.py $pid --tier $tier > $out/check_$pid.txt 2>$out/check_$pid.err; echo "exit=$? (tier $tier, full check; native sweep flagged nothing the restricted runs could decide)" >> $out/check_$pid.txt)
-fi
-tif [ -n "$hits" ]; then
-  (cd $V && VERIF_ONLY="$hits" python3 check.py $pid --tier $tier > $out/check_$pid.txt 2>$out/check_$pid.err; echo "exit=$? (tier $tier, restricted to the harnesses the native sweep flagged: $hits)" >> $out/check_$pid.txt)
-  if ! grep -q "^VIOLATION" $out/check_$pid.txt && [ "$tier" = quick ]; then
-    # the flagged harnesses may belong to the thorough tier only (larger bounds, slow ones)
-    (cd $V && VERIF_ONLY="$hits" python3 check.py $pid --tier thorough > $out/check_${pid}_thorough.txt 2>$out/check_${pid}_thorough.err; echo "exit=$? (tier thorough, restricted to the harnesses the native sweep flagged: $hits)" >> $out/check_${pid}_thorough.txt)
-    if grep -q "^VIOLATION" $out/check_${pid}_thorough.txt; then cp $out/check_${pid}_thorough.txt $out/check_$pid.txt; fi
-  fi
-fi
-if [ -z "$hits" ] || { ! grep -q "^VIOLATION" $out/check_$pid.txt && grep -q "no obligation was generated" $out/check_$pid.txt; }; then
-  (cd $V && python3 check.py $pid --tier $tier > $out/check_$pid.txt 2>$out/check_$pid.err; echo "exit=$? (tier $tier, full check; native sweep flagged nothing the restricted runs could decide)" >> $out/check_$pid.txt)
-fi
-aif [ -n "$hits" ]; then
-  (cd $V && VERIF_ONLY="$hits" python3 check.py $pid --tier $tier > $out/check_$pid.txt 2>$out/check_$pid.err; echo "exit=$? (tier $tier, restricted to the harnesses the native sweep flagged: $hits)" >> $out/check_$pid.txt)
-  if ! grep -q "^VIOLATION" $out/check_$pid.txt && [ "$tier" = quick ]; then
-    # the flagged harnesses may belong to the thorough tier only (larger bounds, slow ones)
-    (cd $V && VERIF_ONLY="$hits" python3 check.py $pid --tier thorough > $out/check_${pid}_thorough.txt 2>$out/check_${pid}_thorough.err; echo "exit=$? (tier thorough, restricted to the harnesses the native sweep flagged: $hits)" >> $out/check_${pid}_thorough.txt)
-    if grep -q "^VIOLATION" $out/check_${pid}_thorough.txt; then cp $out/check_${pid}_thorough.txt $out/check_$pid.txt; fi
-  fi
-fi
-if [ -z "$hits" ] || { ! grep -q "^VIOLATION" $out/check_$pid.txt && grep -q "no obligation was generated" $out/check_$pid.txt; }; then
-  (cd $V && python3 check.py $pid --tier $tier > $out/check_$pid.txt 2>$out/check_$pid.err; echo "exit=$? (tier $tier, full check; native sweep flagged nothing the restricted runs could decide)" >> $out/check_$pid.txt)
-fi
-cif [ -n "$hits" ]; then
-  (cd $V && VERIF_ONLY="$hits" python3 check.py $pid --tier $tier > $out/check_$pid.txt 2>$out/check_$pid.err; echo "exit=$? (tier $tier, restricted to the harnesses the native sweep flagged: $hits)" >> $out/check_$pid.txt)
-  if ! grep -q "^VIOLATION" $out/check_$pid.txt && [ "$tier" = quick ]; then
-    # the flagged harnesses may belong to the thorough tier only (larger bounds, slow ones)
-    (cd $V && VERIF_ONLY="$hits" python3 check.py $pid --tier thorough > $out/check_${pid}_thorough.txt 2>$out/check_${pid}_thorough.err; echo "exit=$? (tier thorough, restricted to the harnesses the native sweep flagged: $hits)" >> $out/check_${pid}_thorough.txt)
-    if grep -q "^VIOLATION" $out/check_${pid}_thorough.txt; then cp $out/check_${pid}_thorough.txt $out/check_$pid.txt; fi
-  fi
-fi
-if [ -z "$hits" ] || { ! grep -q "^VIOLATION" $out/check_$pid.txt && grep -q "no obligation was generated" $out/check_$pid.txt; }; then
-  (cd $V && python3 check.py $pid --tier $tier > $out/check_$pid.txt 2>$out/check_$pid.err; echo "exit=$? (tier $tier, full check; native sweep flagged nothing the restricted runs could decide)" >> $out/check_$pid.txt)
-fi
-hif [ -n "$hits" ]; then
-  (cd $V && VERIF_ONLY="$hits" python3 check.py $pid --tier $tier > $out/check_$pid.txt 2>$out/check_$pid.err; echo "exit=$? (tier $tier, restricted to the harnesses the native sweep flagged: $hits)" >> $out/check_$pid.txt)
-  if ! grep -q "^VIOLATION" $out/check_$pid.txt && [ "$tier" = quick ]; then
-    # the flagged harnesses may belong to the thorough tier only (larger bounds, slow ones)
-    (cd $V && VERIF_ONLY="$hits" python3 check.py $pid --tier thorough > $out/check_${pid}_thorough.txt 2>$out/check_${pid}_thorough.err; echo "exit=$? (tier thorough, restricted to the harnesses the native sweep flagged: $hits)" >> $out/check_${pid}_thorough.txt)
-    if grep -q "^VIOLATION" $out/check_${pid}_thorough.txt; then cp $out/check_${pid}_thorough.txt $out/check_$pid.txt; fi
-  fi
-fi
-if [ -z "$hits" ] || { ! grep -q "^VIOLATION" $out/check_$pid.txt && grep -q "no obligation was generated" $out/check_$pid.txt; }; then
-  (cd $V && python3 check.py $pid --tier $tier > $out/check_$pid.txt 2>$out/check_$pid.err; echo "exit=$? (tier $tier, full check; native sweep flagged nothing the restricted runs could decide)" >> $out/check_$pid.txt)
-fi
- if [ -n "$hits" ]; then
-  (cd $V && VERIF_ONLY="$hits" python3 check.py $pid --tier $tier > $out/check_$pid.txt 2>$out/check_$pid.err; echo "exit=$? (tier $tier, restricted to the harnesses the native sweep flagged: $hits)" >> $out/check_$pid.txt)
-  if ! grep -q "^VIOLATION" $out/check_$pid.txt && [ "$tier" = quick ]; then
-    # the flagged harnesses may belong to the thorough tier only (larger bounds, slow ones)
-    (cd $V && VERIF_ONLY="$hits" python3 check.py $pid --tier thorough > $out/check_${pid}_thorough.txt 2>$out/check_${pid}_thorough.err; echo "exit=$? (tier thorough, restricted to the harnesses the native sweep flagged: $hits)" >> $out/check_${pid}_thorough.txt)
-    if grep -q "^VIOLATION" $out/check_${pid}_thorough.txt; then cp $out/check_${pid}_thorough.txt $out/check_$pid.txt; fi
-  fi
-fi
-if [ -z "$hits" ] || { ! grep -q "^VIOLATION" $out/check_$pid.txt && grep -q "no obligation was generated" $out/check_$pid.txt; }; then
-  (cd $V && python3 check.py $pid --tier $tier > $out/check_$pid.txt 2>$out/check_$pid.err; echo "exit=$? (tier $tier, full check; native sweep flagged nothing the restricted runs could decide)" >> $out/check_$pid.txt)
-fi
-$if [ -n "$hits" ]; then
-  (cd $V && VERIF_ONLY="$hits" python3 check.py $pid --tier $tier > $out/check_$pid.txt 2>$out/check_$pid.err; echo "exit=$? (tier $tier, restricted to the harnesses the native sweep flagged: $hits)" >> $out/check_$pid.txt)
-  if ! grep -q "^VIOLATION" $out/check_$pid.txt && [ "$tier" = quick ]; then
-    # the flagged harnesses may belong to the thorough tier only (larger bounds, slow ones)
-    (cd $V && VERIF_ONLY="$hits" python3 check.py $pid --tier thorough > $out/check_${pid}_thorough.txt 2>$out/check_${pid}_thorough.err; echo "exit=$? (tier thorough, restricted to the harnesses the native sweep flagged: $hits)" >> $out/check_${pid}_thorough.txt)
-    if grep -q "^VIOLATION" $out/check_${pid}_thorough.txt; then cp $out/check_${pid}_thorough.txt $out/check_$pid.txt; fi
-  fi
-fi
-if [ -z "$hits" ] || { ! grep -q "^VIOLATION" $out/check_$pid.txt && grep -q "no obligation was generated" $out/check_$pid.txt; }; then
-  (cd $V && python3 check.py $pid --tier $tier > $out/check_$pid.txt 2>$out/check_$pid.err; echo "exit=$? (tier $tier, full check; native sweep flagged nothing the restricted runs could decide)" >> $out/check_$pid.txt)
-fi
-wif [ -n "$hits" ]; then
-  (cd $V && VERIF_ONLY="$hits" python3 check.py $pid --tier $tier > $out/check_$pid.txt 2>$out/check_$pid.err; echo "exit=$? (tier $tier, restricted to the harnesses the native sweep flagged: $hits)" >> $out/check_$pid.txt)
-  if ! grep -q "^VIOLATION" $out/check_$pid.txt && [ "$tier" = quick ]; then
-    # the flagged harnesses may belong to the thorough tier only (larger bounds, slow ones)
-    (cd $V && VERIF_ONLY="$hits" python3 check.py $pid --tier thorough > $out/check_${pid}_thorough.txt 2>$out/check_${pid}_thorough.err; echo "exit=$? (tier thorough, restricted to the harnesses the native sweep flagged: $hits)" >> $out/check_${pid}_thorough.txt)
-    if grep -q "^VIOLATION" $out/check_${pid}_thorough.txt; then cp $out/check_${pid}_thorough.txt $out/check_$pid.txt; fi
-  fi
-fi
-if [ -z "$hits" ] || { ! grep -q "^VIOLATION" $out/check_$pid.txt && grep -q "no obligation was generated" $out/check_$pid.txt; }; then
-  (cd $V && python3 check.py $pid --tier $tier > $out/check_$pid.txt 2>$out/check_$pid.err; echo "exit=$? (tier $tier, full check; native sweep flagged nothing the restricted runs could decide)" >> $out/check_$pid.txt)
-fi
-tif [ -n "$hits" ]; then
-  (cd $V && VERIF_ONLY="$hits" python3 check.py $pid --tier $tier > $out/check_$pid.txt 2>$out/check_$pid.err; echo "exit=$? (tier $tier, restricted to the harnesses the native sweep flagged: $hits)" >> $out/check_$pid.txt)
-  if ! grep -q "^VIOLATION" $out/check_$pid.txt && [ "$tier" = quick ]; then
-    # the flagged harnesses may belong to the thorough tier only (larger bounds, slow ones)
-    (cd $V && VERIF_ONLY="$hits" python3 check.py $pid --tier thorough > $out/check_${pid}_thorough.txt 2>$out/check_${pid}_thorough.err; echo "exit=$? (tier thorough, restricted to the harnesses the native sweep flagged: $hits)" >> $out/check_${pid}_thorough.txt)
-    if grep -q "^VIOLATION" $out/check_${pid}_thorough.txt; then cp $out/check_${pid}_thorough.txt $out/check_$pid.txt; fi
-  fi
-fi
-if [ -z "$hits" ] || { ! grep -q "^VIOLATION" $out/check_$pid.txt && grep -q "no obligation was generated" $out/check_$pid.txt; }; then
-  (cd $V && python3 check.py $pid --tier $tier > $out/check_$pid.txt 2>$out/check_$pid.err; echo "exit=$? (tier $tier, full check; native sweep flagged nothing the restricted runs could decide)" >> $out/check_$pid.txt)
-fi
- if [ -n "$hits" ]; then
-  (cd $V && VERIF_ONLY="$hits" python3 check.py $pid --tier $tier > $out/check_$pid.txt 2>$out/check_$pid.err; echo "exit=$? (tier $tier, restricted to the harnesses the native sweep flagged: $hits)" >> $out/check_$pid.txt)
-  if ! grep -q "^VIOLATION" $out/check_$pid.txt && [ "$tier" = quick ]; then
-    # the flagged harnesses may belong to the thorough tier only (larger bounds, slow ones)
-    (cd $V && VERIF_ONLY="$hits" python3 check.py $pid --tier thorough > $out/check_${pid}_thorough.txt 2>$out/check_${pid}_thorough.err; echo "exit=$? (tier thorough, restricted to the harnesses the native sweep flagged: $hits)" >> $out/check_${pid}_thorough.txt)
-    if grep -q "^VIOLATION" $out/check_${pid}_thorough.txt; then cp $out/check_${pid}_thorough.txt $out/check_$pid.txt; fi
-  fi
-fi
-if [ -z "$hits" ] || { ! grep -q "^VIOLATION" $out/check_$pid.txt && grep -q "no obligation was generated" $out/check_$pid.txt; }; then
-  (cd $V && python3 check.py $pid --tier $tier > $out/check_$pid.txt 2>$out/check_$pid.err; echo "exit=$? (tier $tier, full check; native sweep flagged nothing the restricted runs could decide)" >> $out/check_$pid.txt)
-fi
-Hif [ -n "$hits" ]; then
-  (cd $V && VERIF_ONLY="$hits" python3 check.py $pid --tier $tier > $out/check_$pid.txt 2>$out/check_$pid.err; echo "exit=$? (tier $tier, restricted to the harnesses the native sweep flagged: $hits)" >> $out/check_$pid.txt)
-  if ! grep -q "^VIOLATION" $out/check_$pid.txt && [ "$tier" = quick ]; then
-    # the flagged harnesses may belong to the thorough tier only (larger bounds, slow ones)
-    (cd $V && VERIF_ONLY="$hits" python3 check.py $pid --tier thorough > $out/check_${pid}_thorough.txt 2>$out/check_${pid}_thorough.err; echo "exit=$? (tier thorough, restricted to the harnesses the native sweep flagged: $hits)" >> $out/check_${pid}_thorough.txt)
-    if grep -q "^VIOLATION" $out/check_${pid}_thorough.txt; then cp $out/check_${pid}_thorough.txt $out/check_$pid.txt; fi
-  fi
-fi
-if [ -z "$hits" ] || { ! grep -q "^VIOLATION" $out/check_$pid.txt && grep -q "no obligation was generated" $out/check_$pid.txt; }; then
-  (cd $V && python3 check.py $pid --tier $tier > $out/check_$pid.txt 2>$out/check_$pid.err; echo "exit=$? (tier $tier, full check; native sweep flagged nothing the restricted runs could decide)" >> $out/check_$pid.txt)
-fi
-Eif [ -n "$hits" ]; then
-  (cd $V && VERIF_ONLY="$hits" python3 check.py $pid --tier $tier > $out/check_$pid.txt 2>$out/check_$pid.err; echo "exit=$? (tier $tier, restricted to the harnesses the native sweep flagged: $hits)" >> $out/check_$pid.txt)
-  if ! grep -q "^VIOLATION" $out/check_$pid.txt && [ "$tier" = quick ]; then
-    # the flagged harnesses may belong to the thorough tier only (larger bounds, slow ones)
-    (cd $V && VERIF_ONLY="$hits" python3 check.py $pid --tier thorough > $out/check_${pid}_thorough.txt 2>$out/check_${pid}_thorough.err; echo "exit=$? (tier thorough, restricted to the harnesses the native sweep flagged: $hits)" >> $out/check_${pid}_thorough.txt)
-    if grep -q "^VIOLATION" $out/check_${pid}_thorough.txt; then cp $out/check_${pid}_thorough.txt $out/check_$pid.txt; fi
-  fi
-fi
-if [ -z "$hits" ] || { ! grep -q "^VIOLATION" $out/check_$pid.txt && grep -q "no obligation was generated" $out/check_$pid.txt; }; then
-  (cd $V && python3 check.py $pid --tier $tier > $out/check_$pid.txt 2>$out/check_$pid.err; echo "exit=$? (tier $tier, full check; native sweep flagged nothing the restricted runs could decide)" >> $out/check_$pid.txt)
-fi
-Aif [ -n "$hits" ]; then
-  (cd $V && VERIF_ONLY="$hits" python3 check.py $pid --tier $tier > $out/check_$pid.txt 2>$out/check_$pid.err; echo "exit=$? (tier $tier, restricted to the harnesses the native sweep flagged: $hits)" >> $out/check_$pid.txt)
-  if ! grep -q "^VIOLATION" $out/check_$pid.txt && [ "$tier" = quick ]; then
-    # the flagged harnesses may belong to the thorough tier only (larger bounds, slow ones)
-    (cd $V && VERIF_ONLY="$hits" python3 check.py $pid --tier thorough > $out/check_${pid}_thorough.txt 2>$out/check_${pid}_thorough.err; echo "exit=$? (tier thorough, restricted to the harnesses the native sweep flagged: $hits)" >> $out/check_${pid}_thorough.txt)
-    if grep -q "^VIOLATION" $out/check_${pid}_thorough.txt; then cp $out/check_${pid}_thorough.txt $out/check_$pid.txt; fi
-  fi
-fi
-if [ -z "$hits" ] || { ! grep -q "^VIOLATION" $out/check_$pid.txt && grep -q "no obligation was generated" $out/check_$pid.txt; }; then
-  (cd $V && python3 check.py $pid --tier $tier > $out/check_$pid.txt 2>$out/check_$pid.err; echo "exit=$? (tier $tier, full check; native sweep flagged nothing the restricted runs could decide)" >> $out/check_$pid.txt)
-fi
-Dif [ -n "$hits" ]; then
-  (cd $V && VERIF_ONLY="$hits" python3 check.py $pid --tier $tier > $out/check_$pid.txt 2>$out/check_$pid.err; echo "exit=$? (tier $tier, restricted to the harnesses the native sweep flagged: $hits)" >> $out/check_$pid.txt)
-  if ! grep -q "^VIOLATION" $out/check_$pid.txt && [ "$tier" = quick ]; then
-    # the flagged harnesses may belong to the thorough tier only (larger bounds, slow ones)
-    (cd $V && VERIF_ONLY="$hits" python3 check.py $pid --tier thorough > $out/check_${pid}_thorough.txt 2>$out/check_${pid}_thorough.err; echo "exit=$? (tier thorough, restricted to the harnesses the native sweep flagged: $hits)" >> $out/check_${pid}_thorough.txt)
-    if grep -q "^VIOLATION" $out/check_${pid}_thorough.txt; then cp $out/check_${pid}_thorough.txt $out/check_$pid.txt; fi
-  fi
-fi
-if [ -z "$hits" ] || { ! grep -q "^VIOLATION" $out/check_$pid.txt && grep -q "no obligation was generated" $out/check_$pid.txt; }; then
-  (cd $V && python3 check.py $pid --tier $tier > $out/check_$pid.txt 2>$out/check_$pid.err; echo "exit=$? (tier $tier, full check; native sweep flagged nothing the restricted runs could decide)" >> $out/check_$pid.txt)
-fi
- if [ -n "$hits" ]; then
-  (cd $V && VERIF_ONLY="$hits" python3 check.py $pid --tier $tier > $out/check_$pid.txt 2>$out/check_$pid.err; echo "exit=$? (tier $tier, restricted to the harnesses the native sweep flagged: $hits)" >> $out/check_$pid.txt)
-  if ! grep -q "^VIOLATION" $out/check_$pid.txt && [ "$tier" = quick ]; then
-    # the flagged harnesses may belong to the thorough tier only (larger bounds, slow ones)
-    (cd $V && VERIF_ONLY="$hits" python3 check.py $pid --tier thorough > $out/check_${pid}_thorough.txt 2>$out/check_${pid}_thorough.err; echo "exit=$? (tier thorough, restricted to the harnesses the native sweep flagged: $hits)" >> $out/check_${pid}_thorough.txt)
-    if grep -q "^VIOLATION" $out/check_${pid}_thorough.txt; then cp $out/check_${pid}_thorough.txt $out/check_$pid.txt; fi
-  fi
-fi
-if [ -z "$hits" ] || { ! grep -q "^VIOLATION" $out/check_$pid.txt && grep -q "no obligation was generated" $out/check_$pid.txt; }; then
-  (cd $V && python3 check.py $pid --tier $tier > $out/check_$pid.txt 2>$out/check_$pid.err; echo "exit=$? (tier $tier, full check; native sweep flagged nothing the restricted runs could decide)" >> $out/check_$pid.txt)
-fi
->if [ -n "$hits" ]; then
-  (cd $V && VERIF_ONLY="$hits" python3 check.py $pid --tier $tier > $out/check_$pid.txt 2>$out/check_$pid.err; echo "exit=$? (tier $tier, restricted to the harnesses the native sweep flagged: $hits)" >> $out/check_$pid.txt)
-  if ! grep -q "^VIOLATION" $out/check_$pid.txt && [ "$tier" = quick ]; then
-    # the flagged harnesses may belong to the thorough tier only (larger bounds, slow ones)
-    (cd $V && VERIF_ONLY="$hits" python3 check.py $pid --tier thorough > $out/check_${pid}_thorough.txt 2>$out/check_${pid}_thorough.err; echo "exit=$? (tier thorough, restricted to the harnesses the native sweep flagged: $hits)" >> $out/check_${pid}_thorough.txt)
-    if grep -q "^VIOLATION" $out/check_${pid}_thorough.txt; then cp $out/check_${pid}_thorough.txt $out/check_$pid.txt; fi
-  fi
-fi
-if [ -z "$hits" ] || { ! grep -q "^VIOLATION" $out/check_$pid.txt && grep -q "no obligation was generated" $out/check_$pid.txt; }; then
-  (cd $V && python3 check.py $pid --tier $tier > $out/check_$pid.txt 2>$out/check_$pid.err; echo "exit=$? (tier $tier, full check; native sweep flagged nothing the restricted runs could decide)" >> $out/check_$pid.txt)
-fi
-/if [ -n "$hits" ]; then
-  (cd $V && VERIF_ONLY="$hits" python3 check.py $pid --tier $tier > $out/check_$pid.txt 2>$out/check_$pid.err; echo "exit=$? (tier $tier, restricted to the harnesses the native sweep flagged: $hits)" >> $out/check_$pid.txt)
-  if ! grep -q "^VIOLATION" $out/check_$pid.txt && [ "$tier" = quick ]; then
-    # the flagged harnesses may belong to the thorough tier only (larger bounds, slow ones)
-    (cd $V && VERIF_ONLY="$hits" python3 check.py $pid --tier thorough > $out/check_${pid}_thorough.txt 2>$out/check_${pid}_thorough.err; echo "exit=$? (tier thorough, restricted to the harnesses the native sweep flagged: $hits)" >> $out/check_${pid}_thorough.txt)
-    if grep -q "^VIOLATION" $out/check_${pid}_thorough.txt; then cp $out/check_${pid}_thorough.txt $out/check_$pid.txt; fi
-  fi
-fi
-if [ -z "$hits" ] || { ! grep -q "^VIOLATION" $out/check_$pid.txt && grep -q "no obligation was generated" $out/check_$pid.txt; }; then
-  (cd $V && python3 check.py $pid --tier $tier > $out/check_$pid.txt 2>$out/check_$pid.err; echo "exit=$? (tier $tier, full check; native sweep flagged nothing the restricted runs could decide)" >> $out/check_$pid.txt)
-fi
-dif [ -n "$hits" ]; then
-  (cd $V && VERIF_ONLY="$hits" python3 check.py $pid --tier $tier > $out/check_$pid.txt 2>$out/check_$pid.err; echo "exit=$? (tier $tier, restricted to the harnesses the native sweep flagged: $hits)" >> $out/check_$pid.txt)
-  if ! grep -q "^VIOLATION" $out/check_$pid.txt && [ "$tier" = quick ]; then
-    # the flagged harnesses may belong to the thorough tier only (larger bounds, slow ones)
-    (cd $V && VERIF_ONLY="$hits" python3 check.py $pid --tier thorough > $out/check_${pid}_thorough.txt 2>$out/check_${pid}_thorough.err; echo "exit=$? (tier thorough, restricted to the harnesses the native sweep flagged: $hits)" >> $out/check_${pid}_thorough.txt)
-    if grep -q "^VIOLATION" $out/check_${pid}_thorough.txt; then cp $out/check_${pid}_thorough.txt $out/check_$pid.txt; fi
-  fi
-fi
-if [ -z "$hits" ] || { ! grep -q "^VIOLATION" $out/check_$pid.txt && grep -q "no obligation was generated" $out/check_$pid.txt; }; then
-  (cd $V && python3 check.py $pid --tier $tier > $out/check_$pid.txt 2>$out/check_$pid.err; echo "exit=$? (tier $tier, full check; native sweep flagged nothing the restricted runs could decide)" >> $out/check_$pid.txt)
-fi
-eif [ -n "$hits" ]; then
-  (cd $V && VERIF_ONLY="$hits" python3 check.py $pid --tier $tier > $out/check_$pid.txt 2>$out/check_$pid.err; echo "exit=$? (tier $tier, restricted to the harnesses the native sweep flagged: $hits)" >> $out/check_$pid.txt)
-  if ! grep -q "^VIOLATION" $out/check_$pid.txt && [ "$tier" = quick ]; then
-    # the flagged harnesses may belong to the thorough tier only (larger bounds, slow ones)
-    (cd $V && VERIF_ONLY="$hits" python3 check.py $pid --tier thorough > $out/check_${pid}_thorough.txt 2>$out/check_${pid}_thorough.err; echo "exit=$? (tier thorough, restricted to the harnesses the native sweep flagged: $hits)" >> $out/check_${pid}_thorough.txt)
-    if grep -q "^VIOLATION" $out/check_${pid}_thorough.txt; then cp $out/check_${pid}_thorough.txt $out/check_$pid.txt; fi
-  fi
-fi
-if [ -z "$hits" ] || { ! grep -q "^VIOLATION" $out/check_$pid.txt && grep -q "no obligation was generated" $out/check_$pid.txt; }; then
-  (cd $V && python3 check.py $pid --tier $tier > $out/check_$pid.txt 2>$out/check_$pid.err; echo "exit=$? (tier $tier, full check; native sweep flagged nothing the restricted runs could decide)" >> $out/check_$pid.txt)
-fi
-vif [ -n "$hits" ]; then
-  (cd $V && VERIF_ONLY="$hits" python3 check.py $pid --tier $tier > $out/check_$pid.txt 2>$out/check_$pid.err; echo "exit=$? (tier $tier, restricted to the harnesses the native sweep flagged: $hits)" >> $out/check_$pid.txt)
-  if ! grep -q "^VIOLATION" $out/check_$pid.txt && [ "$tier" = quick ]; then
-    # the flagged harnesses may belong to the thorough tier only (larger bounds, slow ones)
-    (cd $V && VERIF_ONLY="$hits" python3 check.py $pid --tier thorough > $out/check_${pid}_thorough.txt 2>$out/check_${pid}_thorough.err; echo "exit=$? (tier thorough, restricted to the harnesses the native sweep flagged: $hits)" >> $out/check_${pid}_thorough.txt)
-    if grep -q "^VIOLATION" $out/check_${pid}_thorough.txt; then cp $out/check_${pid}_thorough.txt $out/check_$pid.txt; fi
-  fi
-fi
-if [ -z "$hits" ] || { ! grep -q "^VIOLATION" $out/check_$pid.txt && grep -q "no obligation was generated" $out/check_$pid.txt; }; then
-  (cd $V && python3 check.py $pid --tier $tier > $out/check_$pid.txt 2>$out/check_$pid.err; echo "exit=$? (tier $tier, full check; native sweep flagged nothing the restricted runs could decide)" >> $out/check_$pid.txt)
-fi
-/if [ -n "$hits" ]; then
-  (cd $V && VERIF_ONLY="$hits" python3 check.py $pid --tier $tier > $out/check_$pid.txt 2>$out/check_$pid.err; echo "exit=$? (tier $tier, restricted to the harnesses the native sweep flagged: $hits)" >> $out/check_$pid.txt)
-  if ! grep -q "^VIOLATION" $out/check_$pid.txt && [ "$tier" = quick ]; then
-    # the flagged harnesses may belong to the thorough tier only (larger bounds, slow ones)
-    (cd $V && VERIF_ONLY="$hits" python3 check.py $pid --tier thorough > $out/check_${pid}_thorough.txt 2>$out/check_${pid}_thorough.err; echo "exit=$? (tier thorough, restricted to the harnesses the native sweep flagged: $hits)" >> $out/check_${pid}_thorough.txt)
-    if grep -q "^VIOLATION" $out/check_${pid}_thorough.txt; then cp $out/check_${pid}_thorough.txt $out/check_$pid.txt; fi
-  fi
-fi
-if [ -z "$hits" ] || { ! grep -q "^VIOLATION" $out/check_$pid.txt && grep -q "no obligation was generated" $out/check_$pid.txt; }; then
-  (cd $V && python3 check.py $pid --tier $tier > $out/check_$pid.txt 2>$out/check_$pid.err; echo "exit=$? (tier $tier, full check; native sweep flagged nothing the restricted runs could decide)" >> $out/check_$pid.txt)
-fi
-nif [ -n "$hits" ]; then
-  (cd $V && VERIF_ONLY="$hits" python3 check.py $pid --tier $tier > $out/check_$pid.txt 2>$out/check_$pid.err; echo "exit=$? (tier $tier, restricted to the harnesses the native sweep flagged: $hits)" >> $out/check_$pid.txt)
-  if ! grep -q "^VIOLATION" $out/check_$pid.txt && [ "$tier" = quick ]; then
-    # the flagged harnesses may belong to the thorough tier only (larger bounds, slow ones)
-    (cd $V && VERIF_ONLY="$hits" python3 check.py $pid --tier thorough > $out/check_${pid}_thorough.txt 2>$out/check_${pid}_thorough.err; echo "exit=$? (tier thorough, restricted to the harnesses the native sweep flagged: $hits)" >> $out/check_${pid}_thorough.txt)
-    if grep -q "^VIOLATION" $out/check_${pid}_thorough.txt; then cp $out/check_${pid}_thorough.txt $out/check_$pid.txt; fi
-  fi
-fi
-if [ -z "$hits" ] || { ! grep -q "^VIOLATION" $out/check_$pid.txt && grep -q "no obligation was generated" $out/check_$pid.txt; }; then
-  (cd $V && python3 check.py $pid --tier $tier > $out/check_$pid.txt 2>$out/check_$pid.err; echo "exit=$? (tier $tier, full check; native sweep flagged nothing the restricted runs could decide)" >> $out/check_$pid.txt)
-fi
-uif [ -n "$hits" ]; then
-  (cd $V && VERIF_ONLY="$hits" python3 check.py $pid --tier $tier > $out/check_$pid.txt 2>$out/check_$pid.err; echo "exit=$? (tier $tier, restricted to the harnesses the native sweep flagged: $hits)" >> $out/check_$pid.txt)
-  if ! grep -q "^VIOLATION" $out/check_$pid.txt && [ "$tier" = quick ]; then
-    # the flagged harnesses may belong to the thorough tier only (larger bounds, slow ones)
-    (cd $V && VERIF_ONLY="$hits" python3 check.py $pid --tier thorough > $out/check_${pid}_thorough.txt 2>$out/check_${pid}_thorough.err; echo "exit=$? (tier thorough, restricted to the harnesses the native sweep flagged: $hits)" >> $out/check_${pid}_thorough.txt)
-    if grep -q "^VIOLATION" $out/check_${pid}_thorough.txt; then cp $out/check_${pid}_thorough.txt $out/check_$pid.txt; fi
-  fi
-fi
-if [ -z "$hits" ] || { ! grep -q "^VIOLATION" $out/check_$pid.txt && grep -q "no obligation was generated" $out/check_$pid.txt; }; then
-  (cd $V && python3 check.py $pid --tier $tier > $out/check_$pid.txt 2>$out/check_$pid.err; echo "exit=$? (tier $tier, full check; native sweep flagged nothing the restricted runs could decide)" >> $out/check_$pid.txt)
-fi
-lif [ -n "$hits" ]; then
-  (cd $V && VERIF_ONLY="$hits" python3 check.py $pid --tier $tier > $out/check_$pid.txt 2>$out/check_$pid.err; echo "exit=$? (tier $tier, restricted to the harnesses the native sweep flagged: $hits)" >> $out/check_$pid.txt)
-  if ! grep -q "^VIOLATION" $out/check_$pid.txt && [ "$tier" = quick ]; then
-    # the flagged harnesses may belong to the thorough tier only (larger bounds, slow ones)
-    (cd $V && VERIF_ONLY="$hits" python3 check.py $pid --tier thorough > $out/check_${pid}_thorough.txt 2>$out/check_${pid}_thorough.err; echo "exit=$? (tier thorough, restricted to the harnesses the native sweep flagged: $hits)" >> $out/check_${pid}_thorough.txt)
-    if grep -q "^VIOLATION" $out/check_${pid}_thorough.txt; then cp $out/check_${pid}_thorough.txt $out/check_$pid.txt; fi
-  fi
-fi
-if [ -z "$hits" ] || { ! grep -q "^VIOLATION" $out/check_$pid.txt && grep -q "no obligation was generated" $out/check_$pid.txt; }; then
-  (cd $V && python3 check.py $pid --tier $tier > $out/check_$pid.txt 2>$out/check_$pid.err; echo "exit=$? (tier $tier, full check; native sweep flagged nothing the restricted runs could decide)" >> $out/check_$pid.txt)
-fi
-lif [ -n "$hits" ]; then
-  (cd $V && VERIF_ONLY="$hits" python3 check.py $pid --tier $tier > $out/check_$pid.txt 2>$out/check_$pid.err; echo "exit=$? (tier $tier, restricted to the harnesses the native sweep flagged: $hits)" >> $out/check_$pid.txt)
-  if ! grep -q "^VIOLATION" $out/check_$pid.txt && [ "$tier" = quick ]; then
-    # the flagged harnesses may belong to the thorough tier only (larger bounds, slow ones)
-    (cd $V && VERIF_ONLY="$hits" python3 check.py $pid --tier thorough > $out/check_${pid}_thorough.txt 2>$out/check_${pid}_thorough.err; echo "exit=$? (tier thorough, restricted to the harnesses the native sweep flagged: $hits)" >> $out/check_${pid}_thorough.txt)
-    if grep -q "^VIOLATION" $out/check_${pid}_thorough.txt; then cp $out/check_${pid}_thorough.txt $out/check_$pid.txt; fi
-  fi
-fi
-if [ -z "$hits" ] || { ! grep -q "^VIOLATION" $out/check_$pid.txt && grep -q "no obligation was generated" $out/check_$pid.txt; }; then
-  (cd $V && python3 check.py $pid --tier $tier > $out/check_$pid.txt 2>$out/check_$pid.err; echo "exit=$? (tier $tier, full check; native sweep flagged nothing the restricted runs could decide)" >> $out/check_$pid.txt)
-fi
- if [ -n "$hits" ]; then
-  (cd $V && VERIF_ONLY="$hits" python3 check.py $pid --tier $tier > $out/check_$pid.txt 2>$out/check_$pid.err; echo "exit=$? (tier $tier, restricted to the harnesses the native sweep flagged: $hits)" >> $out/check_$pid.txt)
-  if ! grep -q "^VIOLATION" $out/check_$pid.txt && [ "$tier" = quick ]; then
-    # the flagged harnesses may belong to the thorough tier only (larger bounds, slow ones)
-    (cd $V && VERIF_ONLY="$hits" python3 check.py $pid --tier thorough > $out/check_${pid}_thorough.txt 2>$out/check_${pid}_thorough.err; echo "exit=$? (tier thorough, restricted to the harnesses the native sweep flagged: $hits)" >> $out/check_${pid}_thorough.txt)
-    if grep -q "^VIOLATION" $out/check_${pid}_thorough.txt; then cp $out/check_${pid}_thorough.txt $out/check_$pid.txt; fi
-  fi
-fi
-if [ -z "$hits" ] || { ! grep -q "^VIOLATION" $out/check_$pid.txt && grep -q "no obligation was generated" $out/check_$pid.txt; }; then
-  (cd $V && python3 check.py $pid --tier $tier > $out/check_$pid.txt 2>$out/check_$pid.err; echo "exit=$? (tier $tier, full check; native sweep flagged nothing the restricted runs could decide)" >> $out/check_$pid.txt)
-fi
-2if [ -n "$hits" ]; then
-  (cd $V && VERIF_ONLY="$hits" python3 check.py $pid --tier $tier > $out/check_$pid.txt 2>$out/check_$pid.err; echo "exit=$? (tier $tier, restricted to the harnesses the native sweep flagged: $hits)" >> $out/check_$pid.txt)
-  if ! grep -q "^VIOLATION" $out/check_$pid.txt && [ "$tier" = quick ]; then
-    # the flagged harnesses may belong to the thorough tier only (larger bounds, slow ones)
-    (cd $V && VERIF_ONLY="$hits" python3 check.py $pid --tier thorough > $out/check_${pid}_thorough.txt 2>$out/check_${pid}_thorough.err; echo "exit=$? (tier thorough, restricted to the harnesses the native sweep flagged: $hits)" >> $out/check_${pid}_thorough.txt)
-    if grep -q "^VIOLATION" $out/check_${pid}_thorough.txt; then cp $out/check_${pid}_thorough.txt $out/check_$pid.txt; fi
-  fi
-fi
-if [ -z "$hits" ] || { ! grep -q "^VIOLATION" $out/check_$pid.txt && grep -q "no obligation was generated" $out/check_$pid.txt; }; then
-  (cd $V && python3 check.py $pid --tier $tier > $out/check_$pid.txt 2>$out/check_$pid.err; echo "exit=$? (tier $tier, full check; native sweep flagged nothing the restricted runs could decide)" >> $out/check_$pid.txt)
-fi
->if [ -n "$hits" ]; then
-  (cd $V && VERIF_ONLY="$hits" python3 check.py $pid --tier $tier > $out/check_$pid.txt 2>$out/check_$pid.err; echo "exit=$? (tier $tier, restricted to the harnesses the native sweep flagged: $hits)" >> $out/check_$pid.txt)
-  if ! grep -q "^VIOLATION" $out/check_$pid.txt && [ "$tier" = quick ]; then
-    # the flagged harnesses may belong to the thorough tier only (larger bounds, slow ones)
-    (cd $V && VERIF_ONLY="$hits" python3 check.py $pid --tier thorough > $out/check_${pid}_thorough.txt 2>$out/check_${pid}_thorough.err; echo "exit=$? (tier thorough, restricted to the harnesses the native sweep flagged: $hits)" >> $out/check_${pid}_thorough.txt)
-    if grep -q "^VIOLATION" $out/check_${pid}_thorough.txt; then cp $out/check_${pid}_thorough.txt $out/check_$pid.txt; fi
-  fi
-fi
-if [ -z "$hits" ] || { ! grep -q "^VIOLATION" $out/check_$pid.txt && grep -q "no obligation was generated" $out/check_$pid.txt; }; then
-  (cd $V && python3 check.py $pid --tier $tier > $out/check_$pid.txt 2>$out/check_$pid.err; echo "exit=$? (tier $tier, full check; native sweep flagged nothing the restricted runs could decide)" >> $out/check_$pid.txt)
-fi
-&if [ -n "$hits" ]; then
-  (cd $V && VERIF_ONLY="$hits" python3 check.py $pid --tier $tier > $out/check_$pid.txt 2>$out/check_$pid.err; echo "exit=$? (tier $tier, restricted to the harnesses the native sweep flagged: $hits)" >> $out/check_$pid.txt)
-  if ! grep -q "^VIOLATION" $out/check_$pid.txt && [ "$tier" = quick ]; then
-    # the flagged harnesses may belong to the thorough tier only (larger bounds, slow ones)
-    (cd $V && VERIF_ONLY="$hits" python3 check.py $pid --tier thorough > $out/check_${pid}_thorough.txt 2>$out/check_${pid}_thorough.err; echo "exit=$? (tier thorough, restricted to the harnesses the native sweep flagged: $hits)" >> $out/check_${pid}_thorough.txt)
-    if grep -q "^VIOLATION" $out/check_${pid}_thorough.txt; then cp $out/check_${pid}_thorough.txt $out/check_$pid.txt; fi
-  fi
-fi
-if [ -z "$hits" ] || { ! grep -q "^VIOLATION" $out/check_$pid.txt && grep -q "no obligation was generated" $out/check_$pid.txt; }; then
-  (cd $V && python3 check.py $pid --tier $tier > $out/check_$pid.txt 2>$out/check_$pid.err; echo "exit=$? (tier $tier, full check; native sweep flagged nothing the restricted runs could decide)" >> $out/check_$pid.txt)
-fi
-1if [ -n "$hits" ]; then
-  (cd $V && VERIF_ONLY="$hits" python3 check.py $pid --tier $tier > $out/check_$pid.txt 2>$out/check_$pid.err; echo "exit=$? (tier $tier, restricted to the harnesses the native sweep flagged: $hits)" >> $out/check_$pid.txt)
-  if ! grep -q "^VIOLATION" $out/check_$pid.txt && [ "$tier" = quick ]; then
-    # the flagged harnesses may belong to the thorough tier only (larger bounds, slow ones)
-    (cd $V && VERIF_ONLY="$hits" python3 check.py $pid --tier thorough > $out/check_${pid}_thorough.txt 2>$out/check_${pid}_thorough.err; echo "exit=$? (tier thorough, restricted to the harnesses the native sweep flagged: $hits)" >> $out/check_${pid}_thorough.txt)
-    if grep -q "^VIOLATION" $out/check_${pid}_thorough.txt; then cp $out/check_${pid}_thorough.txt $out/check_$pid.txt; fi
-  fi
-fi
-if [ -z "$hits" ] || { ! grep -q "^VIOLATION" $out/check_$pid.txt && grep -q "no obligation was generated" $out/check_$pid.txt; }; then
-  (cd $V && python3 check.py $pid --tier $tier > $out/check_$pid.txt 2>$out/check_$pid.err; echo "exit=$? (tier $tier, full check; native sweep flagged nothing the restricted runs could decide)" >> $out/check_$pid.txt)
-fi
- if [ -n "$hits" ]; then
-  (cd $V && VERIF_ONLY="$hits" python3 check.py $pid --tier $tier > $out/check_$pid.txt 2>$out/check_$pid.err; echo "exit=$? (tier $tier, restricted to the harnesses the native sweep flagged: $hits)" >> $out/check_$pid.txt)
-  if ! grep -q "^VIOLATION" $out/check_$pid.txt && [ "$tier" = quick ]; then
-    # the flagged harnesses may belong to the thorough tier only (larger bounds, slow ones)
-    (cd $V && VERIF_ONLY="$hits" python3 check.py $pid --tier thorough > $out/check_${pid}_thorough.txt 2>$out/check_${pid}_thorough.err; echo "exit=$? (tier thorough, restricted to the harnesses the native sweep flagged: $hits)" >> $out/check_${pid}_thorough.txt)
-    if grep -q "^VIOLATION" $out/check_${pid}_thorough.txt; then cp $out/check_${pid}_thorough.txt $out/check_$pid.txt; fi
-  fi
-fi
-if [ -z "$hits" ] || { ! grep -q "^VIOLATION" $out/check_$pid.txt && grep -q "no obligation was generated" $out/check_$pid.txt; }; then
-  (cd $V && python3 check.py $pid --tier $tier > $out/check_$pid.txt 2>$out/check_$pid.err; echo "exit=$? (tier $tier, full check; native sweep flagged nothing the restricted runs could decide)" >> $out/check_$pid.txt)
-fi
-|if [ -n "$hits" ]; then
-  (cd $V && VERIF_ONLY="$hits" python3 check.py $pid --tier $tier > $out/check_$pid.txt 2>$out/check_$pid.err; echo "exit=$? (tier $tier, restricted to the harnesses the native sweep flagged: $hits)" >> $out/check_$pid.txt)
-  if ! grep -q "^VIOLATION" $out/check_$pid.txt && [ "$tier" = quick ]; then
-    # the flagged harnesses may belong to the thorough tier only (larger bounds, slow ones)
-    (cd $V && VERIF_ONLY="$hits" python3 check.py $pid --tier thorough > $out/check_${pid}_thorough.txt 2>$out/check_${pid}_thorough.err; echo "exit=$? (tier thorough, restricted to the harnesses the native sweep flagged: $hits)" >> $out/check_${pid}_thorough.txt)
-    if grep -q "^VIOLATION" $out/check_${pid}_thorough.txt; then cp $out/check_${pid}_thorough.txt $out/check_$pid.txt; fi
-  fi
-fi
-if [ -z "$hits" ] || { ! grep -q "^VIOLATION" $out/check_$pid.txt && grep -q "no obligation was generated" $out/check_$pid.txt; }; then
-  (cd $V && python3 check.py $pid --tier $tier > $out/check_$pid.txt 2>$out/check_$pid.err; echo "exit=$? (tier $tier, full check; native sweep flagged nothing the restricted runs could decide)" >> $out/check_$pid.txt)
-fi
-|if [ -n "$hits" ]; then
-  (cd $V && VERIF_ONLY="$hits" python3 check.py $pid --tier $tier > $out/check_$pid.txt 2>$out/check_$pid.err; echo "exit=$? (tier $tier, restricted to the harnesses the native sweep flagged: $hits)" >> $out/check_$pid.txt)
-  if ! grep -q "^VIOLATION" $out/check_$pid.txt && [ "$tier" = quick ]; then
-    # the flagged harnesses may belong to the thorough tier only (larger bounds, slow ones)
-    (cd $V && VERIF_ONLY="$hits" python3 check.py $pid --tier thorough > $out/check_${pid}_thorough.txt 2>$out/check_${pid}_thorough.err; echo "exit=$? (tier thorough, restricted to the harnesses the native sweep flagged: $hits)" >> $out/check_${pid}_thorough.txt)
-    if grep -q "^VIOLATION" $out/check_${pid}_thorough.txt; then cp $out/check_${pid}_thorough.txt $out/check_$pid.txt; fi
-  fi
-fi
-if [ -z "$hits" ] || { ! grep -q "^VIOLATION" $out/check_$pid.txt && grep -q "no obligation was generated" $out/check_$pid.txt; }; then
-  (cd $V && python3 check.py $pid --tier $tier > $out/check_$pid.txt 2>$out/check_$pid.err; echo "exit=$? (tier $tier, full check; native sweep flagged nothing the restricted runs could decide)" >> $out/check_$pid.txt)
-fi
- if [ -n "$hits" ]; then
-  (cd $V && VERIF_ONLY="$hits" python3 check.py $pid --tier $tier > $out/check_$pid.txt 2>$out/check_$pid.err; echo "exit=$? (tier $tier, restricted to the harnesses the native sweep flagged: $hits)" >> $out/check_$pid.txt)
-  if ! grep -q "^VIOLATION" $out/check_$pid.txt && [ "$tier" = quick ]; then
-    # the flagged harnesses may belong to the thorough tier only (larger bounds, slow ones)
-    (cd $V && VERIF_ONLY="$hits" python3 check.py $pid --tier thorough > $out/check_${pid}_thorough.txt 2>$out/check_${pid}_thorough.err; echo "exit=$? (tier thorough, restricted to the harnesses the native sweep flagged: $hits)" >> $out/check_${pid}_thorough.txt)
-    if grep -q "^VIOLATION" $out/check_${pid}_thorough.txt; then cp $out/check_${pid}_thorough.txt $out/check_$pid.txt; fi
-  fi
-fi
-if [ -z "$hits" ] || { ! grep -q "^VIOLATION" $out/check_$pid.txt && grep -q "no obligation was generated" $out/check_$pid.txt; }; then
-  (cd $V && python3 check.py $pid --tier $tier > $out/check_$pid.txt 2>$out/check_$pid.err; echo "exit=$? (tier $tier, full check; native sweep flagged nothing the restricted runs could decide)" >> $out/check_$pid.txt)
-fi
-{if [ -n "$hits" ]; then
-  (cd $V && VERIF_ONLY="$hits" python3 check.py $pid --tier $tier > $out/check_$pid.txt 2>$out/check_$pid.err; echo "exit=$? (tier $tier, restricted to the harnesses the native sweep flagged: $hits)" >> $out/check_$pid.txt)
-  if ! grep -q "^VIOLATION" $out/check_$pid.txt && [ "$tier" = quick ]; then
-    # the flagged harnesses may belong to the thorough tier only (larger bounds, slow ones)
-    (cd $V && VERIF_ONLY="$hits" python3 check.py $pid --tier thorough > $out/check_${pid}_thorough.txt 2>$out/check_${pid}_thorough.err; echo "exit=$? (tier thorough, restricted to the harnesses the native sweep flagged: $hits)" >> $out/check_${pid}_thorough.txt)
-    if grep -q "^VIOLATION" $out/check_${pid}_thorough.txt; then cp $out/check_${pid}_thorough.txt $out/check_$pid.txt; fi
-  fi
-fi
-if [ -z "$hits" ] || { ! grep -q "^VIOLATION" $out/check_$pid.txt && grep -q "no obligation was generated" $out/check_$pid.txt; }; then
-  (cd $V && python3 check.py $pid --tier $tier > $out/check_$pid.txt 2>$out/check_$pid.err; echo "exit=$? (tier $tier, full check; native sweep flagged nothing the restricted runs could decide)" >> $out/check_$pid.txt)
-fi
- if [ -n "$hits" ]; then
-  (cd $V && VERIF_ONLY="$hits" python3 check.py $pid --tier $tier > $out/check_$pid.txt 2>$out/check_$pid.err; echo "exit=$? (tier $tier, restricted to the harnesses the native sweep flagged: $hits)" >> $out/check_$pid.txt)
-  if ! grep -q "^VIOLATION" $out/check_$pid.txt && [ "$tier" = quick ]; then
-    # the flagged harnesses may belong to the thorough tier only (larger bounds, slow ones)
-    (cd $V && VERIF_ONLY="$hits" python3 check.py $pid --tier thorough > $out/check_${pid}_thorough.txt 2>$out/check_${pid}_thorough.err; echo "exit=$? (tier thorough, restricted to the harnesses the native sweep flagged: $hits)" >> $out/check_${pid}_thorough.txt)
-    if grep -q "^VIOLATION" $out/check_${pid}_thorough.txt; then cp $out/check_${pid}_thorough.txt $out/check_$pid.txt; fi
-  fi
-fi
-if [ -z "$hits" ] || { ! grep -q "^VIOLATION" $out/check_$pid.txt && grep -q "no obligation was generated" $out/check_$pid.txt; }; then
-  (cd $V && python3 check.py $pid --tier $tier > $out/check_$pid.txt 2>$out/check_$pid.err; echo "exit=$? (tier $tier, full check; native sweep flagged nothing the restricted runs could decide)" >> $out/check_$pid.txt)
-fi
-eif [ -n "$hits" ]; then
-  (cd $V && VERIF_ONLY="$hits" python3 check.py $pid --tier $tier > $out/check_$pid.txt 2>$out/check_$pid.err; echo "exit=$? (tier $tier, restricted to the harnesses the native sweep flagged: $hits)" >> $out/check_$pid.txt)
-  if ! grep -q "^VIOLATION" $out/check_$pid.txt && [ "$tier" = quick ]; then
-    # the flagged harnesses may belong to the thorough tier only (larger bounds, slow ones)
-    (cd $V && VERIF_ONLY="$hits" python3 check.py $pid --tier thorough > $out/check_${pid}_thorough.txt 2>$out/check_${pid}_thorough.err; echo "exit=$? (tier thorough, restricted to the harnesses the native sweep flagged: $hits)" >> $out/check_${pid}_thorough.txt)
-    if grep -q "^VIOLATION" $out/check_${pid}_thorough.txt; then cp $out/check_${pid}_thorough.txt $out/check_$pid.txt; fi
-  fi
-fi
-if [ -z "$hits" ] || { ! grep -q "^VIOLATION" $out/check_$pid.txt && grep -q "no obligation was generated" $out/check_$pid.txt; }; then
-  (cd $V && python3 check.py $pid --tier $tier > $out/check_$pid.txt 2>$out/check_$pid.err; echo "exit=$? (tier $tier, full check; native sweep flagged nothing the restricted runs could decide)" >> $out/check_$pid.txt)
-fi
-cif [ -n "$hits" ]; then
-  (cd $V && VERIF_ONLY="$hits" python3 check.py $pid --tier $tier > $out/check_$pid.txt 2>$out/check_$pid.err; echo "exit=$? (tier $tier, restricted to the harnesses the native sweep flagged: $hits)" >> $out/check_$pid.txt)
-  if ! grep -q "^VIOLATION" $out/check_$pid.txt && [ "$tier" = quick ]; then
-    # the flagged harnesses may belong to the thorough tier only (larger bounds, slow ones)
-    (cd $V && VERIF_ONLY="$hits" python3 check.py $pid --tier thorough > $out/check_${pid}_thorough.txt 2>$out/check_${pid}_thorough.err; echo "exit=$? (tier thorough, restricted to the harnesses the native sweep flagged: $hits)" >> $out/check_${pid}_thorough.txt)
-    if grep -q "^VIOLATION" $out/check_${pid}_thorough.txt; then cp $out/check_${pid}_thorough.txt $out/check_$pid.txt; fi
-  fi
-fi
-if [ -z "$hits" ] || { ! grep -q "^VIOLATION" $out/check_$pid.txt && grep -q "no obligation was generated" $out/check_$pid.txt; }; then
-  (cd $V && python3 check.py $pid --tier $tier > $out/check_$pid.txt 2>$out/check_$pid.err; echo "exit=$? (tier $tier, full check; native sweep flagged nothing the restricted runs could decide)" >> $out/check_$pid.txt)
-fi
-hif [ -n "$hits" ]; then
-  (cd $V && VERIF_ONLY="$hits" python3 check.py $pid --tier $tier > $out/check_$pid.txt 2>$out/check_$pid.err; echo "exit=$? (tier $tier, restricted to the harnesses the native sweep flagged: $hits)" >> $out/check_$pid.txt)
-  if ! grep -q "^VIOLATION" $out/check_$pid.txt && [ "$tier" = quick ]; then
-    # the flagged harnesses may belong to the thorough tier only (larger bounds, slow ones)
-    (cd $V && VERIF_ONLY="$hits" python3 check.py $pid --tier thorough > $out/check_${pid}_thorough.txt 2>$out/check_${pid}_thorough.err; echo "exit=$? (tier thorough, restricted to the harnesses the native sweep flagged: $hits)" >> $out/check_${pid}_thorough.txt)
-    if grep -q "^VIOLATION" $out/check_${pid}_thorough.txt; then cp $out/check_${pid}_thorough.txt $out/check_$pid.txt; fi
-  fi
-fi
-if [ -z "$hits" ] || { ! grep -q "^VIOLATION" $out/check_$pid.txt && grep -q "no obligation was generated" $out/check_$pid.txt; }; then
-  (cd $V && python3 check.py $pid --tier $tier > $out/check_$pid.txt 2>$out/check_$pid.err; echo "exit=$? (tier $tier, full check; native sweep flagged nothing the restricted runs could decide)" >> $out/check_$pid.txt)
-fi
-oif [ -n "$hits" ]; then
-  (cd $V && VERIF_ONLY="$hits" python3 check.py $pid --tier $tier > $out/check_$pid.txt 2>$out/check_$pid.err; echo "exit=$? (tier $tier, restricted to the harnesses the native sweep flagged: $hits)" >> $out/check_$pid.txt)
-  if ! grep -q "^VIOLATION" $out/check_$pid.txt && [ "$tier" = quick ]; then
-    # the flagged harnesses may belong to the thorough tier only (larger bounds, slow ones)
-    (cd $V && VERIF_ONLY="$hits" python3 check.py $pid --tier thorough > $out/check_${pid}_thorough.txt 2>$out/check_${pid}_thorough.err; echo "exit=$? (tier thorough, restricted to the harnesses the native sweep flagged: $hits)" >> $out/check_${pid}_thorough.txt)
-    if grep -q "^VIOLATION" $out/check_${pid}_thorough.txt; then cp $out/check_${pid}_thorough.txt $out/check_$pid.txt; fi
-  fi
-fi
-if [ -z "$hits" ] || { ! grep -q "^VIOLATION" $out/check_$pid.txt && grep -q "no obligation was generated" $out/check_$pid.txt; }; then
-  (cd $V && python3 check.py $pid --tier $tier > $out/check_$pid.txt 2>$out/check_$pid.err; echo "exit=$? (tier $tier, full check; native sweep flagged nothing the restricted runs could decide)" >> $out/check_$pid.txt)
-fi
- if [ -n "$hits" ]; then
-  (cd $V && VERIF_ONLY="$hits" python3 check.py $pid --tier $tier > $out/check_$pid.txt 2>$out/check_$pid.err; echo "exit=$? (tier $tier, restricted to the harnesses the native sweep flagged: $hits)" >> $out/check_$pid.txt)
-  if ! grep -q "^VIOLATION" $out/check_$pid.txt && [ "$tier" = quick ]; then
-    # the flagged harnesses may belong to the thorough tier only (larger bounds, slow ones)
-    (cd $V && VERIF_ONLY="$hits" python3 check.py $pid --tier thorough > $out/check_${pid}_thorough.txt 2>$out/check_${pid}_thorough.err; echo "exit=$? (tier thorough, restricted to the harnesses the native sweep flagged: $hits)" >> $out/check_${pid}_thorough.txt)
-    if grep -q "^VIOLATION" $out/check_${pid}_thorough.txt; then cp $out/check_${pid}_thorough.txt $out/check_$pid.txt; fi
-  fi
-fi
-if [ -z "$hits" ] || { ! grep -q "^VIOLATION" $out/check_$pid.txt && grep -q "no obligation was generated" $out/check_$pid.txt; }; then
-  (cd $V && python3 check.py $pid --tier $tier > $out/check_$pid.txt 2>$out/check_$pid.err; echo "exit=$? (tier $tier, full check; native sweep flagged nothing the restricted runs could decide)" >> $out/check_$pid.txt)
-fi
-"if [ -n "$hits" ]; then
-  (cd $V && VERIF_ONLY="$hits" python3 check.py $pid --tier $tier > $out/check_$pid.txt 2>$out/check_$pid.err; echo "exit=$? (tier $tier, restricted to the harnesses the native sweep flagged: $hits)" >> $out/check_$pid.txt)
-  if ! grep -q "^VIOLATION" $out/check_$pid.txt && [ "$tier" = quick ]; then
-    # the flagged harnesses may belong to the thorough tier only (larger bounds, slow ones)
-    (cd $V && VERIF_ONLY="$hits" python3 check.py $pid --tier thorough > $out/check_${pid}_thorough.txt 2>$out/check_${pid}_thorough.err; echo "exit=$? (tier thorough, restricted to the harnesses the native sweep flagged: $hits)" >> $out/check_${pid}_thorough.txt)
-    if grep -q "^VIOLATION" $out/check_${pid}_thorough.txt; then cp $out/check_${pid}_thorough.txt $out/check_$pid.txt; fi
-  fi
-fi
-if [ -z "$hits" ] || { ! grep -q "^VIOLATION" $out/check_$pid.txt && grep -q "no obligation was generated" $out/check_$pid.txt; }; then
-  (cd $V && python3 check.py $pid --tier $tier > $out/check_$pid.txt 2>$out/check_$pid.err; echo "exit=$? (tier $tier, full check; native sweep flagged nothing the restricted runs could decide)" >> $out/check_$pid.txt)
-fi
-wif [ -n "$hits" ]; then
-  (cd $V && VERIF_ONLY="$hits" python3 check.py $pid --tier $tier > $out/check_$pid.txt 2>$out/check_$pid.err; echo "exit=$? (tier $tier, restricted to the harnesses the native sweep flagged: $hits)" >> $out/check_$pid.txt)
-  if ! grep -q "^VIOLATION" $out/check_$pid.txt && [ "$tier" = quick ]; then
-    # the flagged harnesses may belong to the thorough tier only (larger bounds, slow ones)
-    (cd $V && VERIF_ONLY="$hits" python3 check.py $pid --tier thorough > $out/check_${pid}_thorough.txt 2>$out/check_${pid}_thorough.err; echo "exit=$? (tier thorough, restricted to the harnesses the native sweep flagged: $hits)" >> $out/check_${pid}_thorough.txt)
-    if grep -q "^VIOLATION" $out/check_${pid}_thorough.txt; then cp $out/check_${pid}_thorough.txt $out/check_$pid.txt; fi
-  fi
-fi
-if [ -z "$hits" ] || { ! grep -q "^VIOLATION" $out/check_$pid.txt && grep -q "no obligation was generated" $out/check_$pid.txt; }; then
-  (cd $V && python3 check.py $pid --tier $tier > $out/check_$pid.txt 2>$out/check_$pid.err; echo "exit=$? (tier $tier, full check; native sweep flagged nothing the restricted runs could decide)" >> $out/check_$pid.txt)
-fi
-oif [ -n "$hits" ]; then
-  (cd $V && VERIF_ONLY="$hits" python3 check.py $pid --tier $tier > $out/check_$pid.txt 2>$out/check_$pid.err; echo "exit=$? (tier $tier, restricted to the harnesses the native sweep flagged: $hits)" >> $out/check_$pid.txt)
-  if ! grep -q "^VIOLATION" $out/check_$pid.txt && [ "$tier" = quick ]; then
-    # the flagged harnesses may belong to the thorough tier only (larger bounds, slow ones)
-    (cd $V && VERIF_ONLY="$hits" python3 check.py $pid --tier thorough > $out/check_${pid}_thorough.txt 2>$out/check_${pid}_thorough.err; echo "exit=$? (tier thorough, restricted to the harnesses the native sweep flagged: $hits)" >> $out/check_${pid}_thorough.txt)
-    if grep -q "^VIOLATION" $out/check_${pid}_thorough.txt; then cp $out/check_${pid}_thorough.txt $out/check_$pid.txt; fi
-  fi
-fi
-if [ -z "$hits" ] || { ! grep -q "^VIOLATION" $out/check_$pid.txt && grep -q "no obligation was generated" $out/check_$pid.txt; }; then
-  (cd $V && python3 check.py $pid --tier $tier > $out/check_$pid.txt 2>$out/check_$pid.err; echo "exit=$? (tier $tier, full check; native sweep flagged nothing the restricted runs could decide)" >> $out/check_$pid.txt)
-fi
-rif [ -n "$hits" ]; then
-  (cd $V && VERIF_ONLY="$hits" python3 check.py $pid --tier $tier > $out/check_$pid.txt 2>$out/check_$pid.err; echo "exit=$? (tier $tier, restricted to the harnesses the native sweep flagged: $hits)" >> $out/check_$pid.txt)
-  if ! grep -q "^VIOLATION" $out/check_$pid.txt && [ "$tier" = quick ]; then
-    # the flagged harnesses may belong to the thorough tier only (larger bounds, slow ones)
-    (cd $V && VERIF_ONLY="$hits" python3 check.py $pid --tier thorough > $out/check_${pid}_thorough.txt 2>$out/check_${pid}_thorough.err; echo "exit=$? (tier thorough, restricted to the harnesses the native sweep flagged: $hits)" >> $out/check_${pid}_thorough.txt)
-    if grep -q "^VIOLATION" $out/check_${pid}_thorough.txt; then cp $out/check_${pid}_thorough.txt $out/check_$pid.txt; fi
-  fi
-fi
-if [ -z "$hits" ] || { ! grep -q "^VIOLATION" $out/check_$pid.txt && grep -q "no obligation was generated" $out/check_$pid.txt; }; then
-  (cd $V && python3 check.py $pid --tier $tier > $out/check_$pid.txt 2>$out/check_$pid.err; echo "exit=$? (tier $tier, full check; native sweep flagged nothing the restricted runs could decide)" >> $out/check_$pid.txt)
-fi
-kif [ -n "$hits" ]; then
-  (cd $V && VERIF_ONLY="$hits" python3 check.py $pid --tier $tier > $out/check_$pid.txt 2>$out/check_$pid.err; echo "exit=$? (tier $tier, restricted to the harnesses the native sweep flagged: $hits)" >> $out/check_$pid.txt)
-  if ! grep -q "^VIOLATION" $out/check_$pid.txt && [ "$tier" = quick ]; then
-    # the flagged harnesses may belong to the thorough tier only (larger bounds, slow ones)
-    (cd $V && VERIF_ONLY="$hits" python3 check.py $pid --tier thorough > $out/check_${pid}_thorough.txt 2>$out/check_${pid}_thorough.err; echo "exit=$? (tier thorough, restricted to the harnesses the native sweep flagged: $hits)" >> $out/check_${pid}_thorough.txt)
-    if grep -q "^VIOLATION" $out/check_${pid}_thorough.txt; then cp $out/check_${pid}_thorough.txt $out/check_$pid.txt; fi
-  fi
-fi
-if [ -z "$hits" ] || { ! grep -q "^VIOLATION" $out/check_$pid.txt && grep -q "no obligation was generated" $out/check_$pid.txt; }; then
-  (cd $V && python3 check.py $pid --tier $tier > $out/check_$pid.txt 2>$out/check_$pid.err; echo "exit=$? (tier $tier, full check; native sweep flagged nothing the restricted runs could decide)" >> $out/check_$pid.txt)
-fi
-tif [ -n "$hits" ]; then
-  (cd $V && VERIF_ONLY="$hits" python3 check.py $pid --tier $tier > $out/check_$pid.txt 2>$out/check_$pid.err; echo "exit=$? (tier $tier, restricted to the harnesses the native sweep flagged: $hits)" >> $out/check_$pid.txt)
-  if ! grep -q "^VIOLATION" $out/check_$pid.txt && [ "$tier" = quick ]; then
-    # the flagged harnesses may belong to the thorough tier only (larger bounds, slow ones)
-    (cd $V && VERIF_ONLY="$hits" python3 check.py $pid --tier thorough > $out/check_${pid}_thorough.txt 2>$out/check_${pid}_thorough.err; echo "exit=$? (tier thorough, restricted to the harnesses the native sweep flagged: $hits)" >> $out/check_${pid}_thorough.txt)
-    if grep -q "^VIOLATION" $out/check_${pid}_thorough.txt; then cp $out/check_${pid}_thorough.txt $out/check_$pid.txt; fi
-  fi
-fi
-if [ -z "$hits" ] || { ! grep -q "^VIOLATION" $out/check_$pid.txt && grep -q "no obligation was generated" $out/check_$pid.txt; }; then
-  (cd $V && python3 check.py $pid --tier $tier > $out/check_$pid.txt 2>$out/check_$pid.err; echo "exit=$? (tier $tier, full check; native sweep flagged nothing the restricted runs could decide)" >> $out/check_$pid.txt)
-fi
-rif [ -n "$hits" ]; then
-  (cd $V && VERIF_ONLY="$hits" python3 check.py $pid --tier $tier > $out/check_$pid.txt 2>$out/check_$pid.err; echo "exit=$? (tier $tier, restricted to the harnesses the native sweep flagged: $hits)" >> $out/check_$pid.txt)
-  if ! grep -q "^VIOLATION" $out/check_$pid.txt && [ "$tier" = quick ]; then
-    # the flagged harnesses may belong to the thorough tier only (larger bounds, slow ones)
-    (cd $V && VERIF_ONLY="$hits" python3 check.py $pid --tier thorough > $out/check_${pid}_thorough.txt 2>$out/check_${pid}_thorough.err; echo "exit=$? (tier thorough, restricted to the harnesses the native sweep flagged: $hits)" >> $out/check_${pid}_thorough.txt)
-    if grep -q "^VIOLATION" $out/check_${pid}_thorough.txt; then cp $out/check_${pid}_thorough.txt $out/check_$pid.txt; fi
-  fi
-fi
-if [ -z "$hits" ] || { ! grep -q "^VIOLATION" $out/check_$pid.txt && grep -q "no obligation was generated" $out/check_$pid.txt; }; then
-  (cd $V && python3 check.py $pid --tier $tier > $out/check_$pid.txt 2>$out/check_$pid.err; echo "exit=$? (tier $tier, full check; native sweep flagged nothing the restricted runs could decide)" >> $out/check_$pid.txt)
-fi
-eif [ -n "$hits" ]; then
-  (cd $V && VERIF_ONLY="$hits" python3 check.py $pid --tier $tier > $out/check_$pid.txt 2>$out/check_$pid.err; echo "exit=$? (tier $tier, restricted to the harnesses the native sweep flagged: $hits)" >> $out/check_$pid.txt)
-  if ! grep -q "^VIOLATION" $out/check_$pid.txt && [ "$tier" = quick ]; then
-    # the flagged harnesses may belong to the thorough tier only (larger bounds, slow ones)
-    (cd $V && VERIF_ONLY="$hits" python3 check.py $pid --tier thorough > $out/check_${pid}_thorough.txt 2>$out/check_${pid}_thorough.err; echo "exit=$? (tier thorough, restricted to the harnesses the native sweep flagged: $hits)" >> $out/check_${pid}_thorough.txt)
-    if grep -q "^VIOLATION" $out/check_${pid}_thorough.txt; then cp $out/check_${pid}_thorough.txt $out/check_$pid.txt; fi
-  fi
-fi
-if [ -z "$hits" ] || { ! grep -q "^VIOLATION" $out/check_$pid.txt && grep -q "no obligation was generated" $out/check_$pid.txt; }; then
-  (cd $V && python3 check.py $pid --tier $tier > $out/check_$pid.txt 2>$out/check_$pid.err; echo "exit=$? (tier $tier, full check; native sweep flagged nothing the restricted runs could decide)" >> $out/check_$pid.txt)
-fi
-eif [ -n "$hits" ]; then
-  (cd $V && VERIF_ONLY="$hits" python3 check.py $pid --tier $tier > $out/check_$pid.txt 2>$out/check_$pid.err; echo "exit=$? (tier $tier, restricted to the harnesses the native sweep flagged: $hits)" >> $out/check_$pid.txt)
-  if ! grep -q "^VIOLATION" $out/check_$pid.txt && [ "$tier" = quick ]; then
-    # the flagged harnesses may belong to the thorough tier only (larger bounds, slow ones)
-    (cd $V && VERIF_ONLY="$hits" python3 check.py $pid --tier thorough > $out/check_${pid}_thorough.txt 2>$out/check_${pid}_thorough.err; echo "exit=$? (tier thorough, restricted to the harnesses the native sweep flagged: $hits)" >> $out/check_${pid}_thorough.txt)
-    if grep -q "^VIOLATION" $out/check_${pid}_thorough.txt; then cp $out/check_${pid}_thorough.txt $out/check_$pid.txt; fi
-  fi
-fi
-if [ -z "$hits" ] || { ! grep -q "^VIOLATION" $out/check_$pid.txt && grep -q "no obligation was generated" $out/check_$pid.txt; }; then
-  (cd $V && python3 check.py $pid --tier $tier > $out/check_$pid.txt 2>$out/check_$pid.err; echo "exit=$? (tier $tier, full check; native sweep flagged nothing the restricted runs could decide)" >> $out/check_$pid.txt)
-fi
- if [ -n "$hits" ]; then
-  (cd $V && VERIF_ONLY="$hits" python3 check.py $pid --tier $tier > $out/check_$pid.txt 2>$out/check_$pid.err; echo "exit=$? (tier $tier, restricted to the harnesses the native sweep flagged: $hits)" >> $out/check_$pid.txt)
-  if ! grep -q "^VIOLATION" $out/check_$pid.txt && [ "$tier" = quick ]; then
-    # the flagged harnesses may belong to the thorough tier only (larger bounds, slow ones)
-    (cd $V && VERIF_ONLY="$hits" python3 check.py $pid --tier thorough > $out/check_${pid}_thorough.txt 2>$out/check_${pid}_thorough.err; echo "exit=$? (tier thorough, restricted to the harnesses the native sweep flagged: $hits)" >> $out/check_${pid}_thorough.txt)
-    if grep -q "^VIOLATION" $out/check_${pid}_thorough.txt; then cp $out/check_${pid}_thorough.txt $out/check_$pid.txt; fi
-  fi
-fi
-if [ -z "$hits" ] || { ! grep -q "^VIOLATION" $out/check_$pid.txt && grep -q "no obligation was generated" $out/check_$pid.txt; }; then
-  (cd $V && python3 check.py $pid --tier $tier > $out/check_$pid.txt 2>$out/check_$pid.err; echo "exit=$? (tier $tier, full check; native sweep flagged nothing the restricted runs could decide)" >> $out/check_$pid.txt)
-fi
-fif [ -n "$hits" ]; then
-  (cd $V && VERIF_ONLY="$hits" python3 check.py $pid --tier $tier > $out/check_$pid.txt 2>$out/check_$pid.err; echo "exit=$? (tier $tier, restricted to the harnesses the native sweep flagged: $hits)" >> $out/check_$pid.txt)
-  if ! grep -q "^VIOLATION" $out/check_$pid.txt && [ "$tier" = quick ]; then
-    # the flagged harnesses may belong to the thorough tier only (larger bounds, slow ones)
-    (cd $V && VERIF_ONLY="$hits" python3 check.py $pid --tier thorough > $out/check_${pid}_thorough.txt 2>$out/check_${pid}_thorough.err; echo "exit=$? (tier thorough, restricted to the harnesses the native sweep flagged: $hits)" >> $out/check_${pid}_thorough.txt)
-    if grep -q "^VIOLATION" $out/check_${pid}_thorough.txt; then cp $out/check_${pid}_thorough.txt $out/check_$pid.txt; fi
-  fi
-fi
-if [ -z "$hits" ] || { ! grep -q "^VIOLATION" $out/check_$pid.txt && grep -q "no obligation was generated" $out/check_$pid.txt; }; then
-  (cd $V && python3 check.py $pid --tier $tier > $out/check_$pid.txt 2>$out/check_$pid.err; echo "exit=$? (tier $tier, full check; native sweep flagged nothing the restricted runs could decide)" >> $out/check_$pid.txt)
-fi
-aif [ -n "$hits" ]; then
-  (cd $V && VERIF_ONLY="$hits" python3 check.py $pid --tier $tier > $out/check_$pid.txt 2>$out/check_$pid.err; echo "exit=$? (tier $tier, restricted to the harnesses the native sweep flagged: $hits)" >> $out/check_$pid.txt)
-  if ! grep -q "^VIOLATION" $out/check_$pid.txt && [ "$tier" = quick ]; then
-    # the flagged harnesses may belong to the thorough tier only (larger bounds, slow ones)
-    (cd $V && VERIF_ONLY="$hits" python3 check.py $pid --tier thorough > $out/check_${pid}_thorough.txt 2>$out/check_${pid}_thorough.err; echo "exit=$? (tier thorough, restricted to the harnesses the native sweep flagged: $hits)" >> $out/check_${pid}_thorough.txt)
-    if grep -q "^VIOLATION" $out/check_${pid}_thorough.txt; then cp $out/check_${pid}_thorough.txt $out/check_$pid.txt; fi
-  fi
-fi
-if [ -z "$hits" ] || { ! grep -q "^VIOLATION" $out/check_$pid.txt && grep -q "no obligation was generated" $out/check_$pid.txt; }; then
-  (cd $V && python3 check.py $pid --tier $tier > $out/check_$pid.txt 2>$out/check_$pid.err; echo "exit=$? (tier $tier, full check; native sweep flagged nothing the restricted runs could decide)" >> $out/check_$pid.txt)
-fi
-iif [ -n "$hits" ]; then
-  (cd $V && VERIF_ONLY="$hits" python3 check.py $pid --tier $tier > $out/check_$pid.txt 2>$out/check_$pid.err; echo "exit=$? (tier $tier, restricted to the harnesses the native sweep flagged: $hits)" >> $out/check_$pid.txt)
-  if ! grep -q "^VIOLATION" $out/check_$pid.txt && [ "$tier" = quick ]; then
-    # the flagged harnesses may belong to the thorough tier only (larger bounds, slow ones)
-    (cd $V && VERIF_ONLY="$hits" python3 check.py $pid --tier thorough > $out/check_${pid}_thorough.txt 2>$out/check_${pid}_thorough.err; echo "exit=$? (tier thorough, restricted to the harnesses the native sweep flagged: $hits)" >> $out/check_${pid}_thorough.txt)
-    if grep -q "^VIOLATION" $out/check_${pid}_thorough.txt; then cp $out/check_${pid}_thorough.txt $out/check_$pid.txt; fi
-  fi
-fi
-if [ -z "$hits" ] || { ! grep -q "^VIOLATION" $out/check_$pid.txt && grep -q "no obligation was generated" $out/check_$pid.txt; }; then
-  (cd $V && python3 check.py $pid --tier $tier > $out/check_$pid.txt 2>$out/check_$pid.err; echo "exit=$? (tier $tier, full check; native sweep flagged nothing the restricted runs could decide)" >> $out/check_$pid.txt)
-fi
-lif [ -n "$hits" ]; then
-  (cd $V && VERIF_ONLY="$hits" python3 check.py $pid --tier $tier > $out/check_$pid.txt 2>$out/check_$pid.err; echo "exit=$? (tier $tier, restricted to the harnesses the native sweep flagged: $hits)" >> $out/check_$pid.txt)
-  if ! grep -q "^VIOLATION" $out/check_$pid.txt && [ "$tier" = quick ]; then
-    # the flagged harnesses may belong to the thorough tier only (larger bounds, slow ones)
-    (cd $V && VERIF_ONLY="$hits" python3 check.py $pid --tier thorough > $out/check_${pid}_thorough.txt 2>$out/check_${pid}_thorough.err; echo "exit=$? (tier thorough, restricted to the harnesses the native sweep flagged: $hits)" >> $out/check_${pid}_thorough.txt)
-    if grep -q "^VIOLATION" $out/check_${pid}_thorough.txt; then cp $out/check_${pid}_thorough.txt $out/check_$pid.txt; fi
-  fi
-fi
-if [ -z "$hits" ] || { ! grep -q "^VIOLATION" $out/check_$pid.txt && grep -q "no obligation was generated" $out/check_$pid.txt; }; then
-  (cd $V && python3 check.py $pid --tier $tier > $out/check_$pid.txt 2>$out/check_$pid.err; echo "exit=$? (tier $tier, full check; native sweep flagged nothing the restricted runs could decide)" >> $out/check_$pid.txt)
-fi
-eif [ -n "$hits" ]; then
-  (cd $V && VERIF_ONLY="$hits" python3 check.py $pid --tier $tier > $out/check_$pid.txt 2>$out/check_$pid.err; echo "exit=$? (tier $tier, restricted to the harnesses the native sweep flagged: $hits)" >> $out/check_$pid.txt)
-  if ! grep -q "^VIOLATION" $out/check_$pid.txt && [ "$tier" = quick ]; then
-    # the flagged harnesses may belong to the thorough tier only (larger bounds, slow ones)
-    (cd $V && VERIF_ONLY="$hits" python3 check.py $pid --tier thorough > $out/check_${pid}_thorough.txt 2>$out/check_${pid}_thorough.err; echo "exit=$? (tier thorough, restricted to the harnesses the native sweep flagged: $hits)" >> $out/check_${pid}_thorough.txt)
-    if grep -q "^VIOLATION" $out/check_${pid}_thorough.txt; then cp $out/check_${pid}_thorough.txt $out/check_$pid.txt; fi
-  fi
-fi
-if [ -z "$hits" ] || { ! grep -q "^VIOLATION" $out/check_$pid.txt && grep -q "no obligation was generated" $out/check_$pid.txt; }; then
-  (cd $V && python3 check.py $pid --tier $tier > $out/check_$pid.txt 2>$out/check_$pid.err; echo "exit=$? (tier $tier, full check; native sweep flagged nothing the restricted runs could decide)" >> $out/check_$pid.txt)
-fi
-dif [ -n "$hits" ]; then
-  (cd $V && VERIF_ONLY="$hits" python3 check.py $pid --tier $tier > $out/check_$pid.txt 2>$out/check_$pid.err; echo "exit=$? (tier $tier, restricted to the harnesses the native sweep flagged: $hits)" >> $out/check_$pid.txt)
-  if ! grep -q "^VIOLATION" $out/check_$pid.txt && [ "$tier" = quick ]; then
-    # the flagged harnesses may belong to the thorough tier only (larger bounds, slow ones)
-    (cd $V && VERIF_ONLY="$hits" python3 check.py $pid --tier thorough > $out/check_${pid}_thorough.txt 2>$out/check_${pid}_thorough.err; echo "exit=$? (tier thorough, restricted to the harnesses the native sweep flagged: $hits)" >> $out/check_${pid}_thorough.txt)
-    if grep -q "^VIOLATION" $out/check_${pid}_thorough.txt; then cp $out/check_${pid}_thorough.txt $out/check_$pid.txt; fi
-  fi
-fi
-if [ -z "$hits" ] || { ! grep -q "^VIOLATION" $out/check_$pid.txt && grep -q "no obligation was generated" $out/check_$pid.txt; }; then
-  (cd $V && python3 check.py $pid --tier $tier > $out/check_$pid.txt 2>$out/check_$pid.err; echo "exit=$? (tier $tier, full check; native sweep flagged nothing the restricted runs could decide)" >> $out/check_$pid.txt)
-fi
-"if [ -n "$hits" ]; then
-  (cd $V && VERIF_ONLY="$hits" python3 check.py $pid --tier $tier > $out/check_$pid.txt 2>$out/check_$pid.err; echo "exit=$? (tier $tier, restricted to the harnesses the native sweep flagged: $hits)" >> $out/check_$pid.txt)
-  if ! grep -q "^VIOLATION" $out/check_$pid.txt && [ "$tier" = quick ]; then
-    # the flagged harnesses may belong to the thorough tier only (larger bounds, slow ones)
-    (cd $V && VERIF_ONLY="$hits" python3 check.py $pid --tier thorough > $out/check_${pid}_thorough.txt 2>$out/check_${pid}_thorough.err; echo "exit=$? (tier thorough, restricted to the harnesses the native sweep flagged: $hits)" >> $out/check_${pid}_thorough.txt)
-    if grep -q "^VIOLATION" $out/check_${pid}_thorough.txt; then cp $out/check_${pid}_thorough.txt $out/check_$pid.txt; fi
-  fi
-fi
-if [ -z "$hits" ] || { ! grep -q "^VIOLATION" $out/check_$pid.txt && grep -q "no obligation was generated" $out/check_$pid.txt; }; then
-  (cd $V && python3 check.py $pid --tier $tier > $out/check_$pid.txt 2>$out/check_$pid.err; echo "exit=$? (tier $tier, full check; native sweep flagged nothing the restricted runs could decide)" >> $out/check_$pid.txt)
-fi
-;if [ -n "$hits" ]; then
-  (cd $V && VERIF_ONLY="$hits" python3 check.py $pid --tier $tier > $out/check_$pid.txt 2>$out/check_$pid.err; echo "exit=$? (tier $tier, restricted to the harnesses the native sweep flagged: $hits)" >> $out/check_$pid.txt)
-  if ! grep -q "^VIOLATION" $out/check_$pid.txt && [ "$tier" = quick ]; then
-    # the flagged harnesses may belong to the thorough tier only (larger bounds, slow ones)
-    (cd $V && VERIF_ONLY="$hits" python3 check.py $pid --tier thorough > $out/check_${pid}_thorough.txt 2>$out/check_${pid}_thorough.err; echo "exit=$? (tier thorough, restricted to the harnesses the native sweep flagged: $hits)" >> $out/check_${pid}_thorough.txt)
-    if grep -q "^VIOLATION" $out/check_${pid}_thorough.txt; then cp $out/check_${pid}_thorough.txt $out/check_$pid.txt; fi
-  fi
-fi
-if [ -z "$hits" ] || { ! grep -q "^VIOLATION" $out/check_$pid.txt && grep -q "no obligation was generated" $out/check_$pid.txt; }; then
-  (cd $V && python3 check.py $pid --tier $tier > $out/check_$pid.txt 2>$out/check_$pid.err; echo "exit=$? (tier $tier, full check; native sweep flagged nothing the restricted runs could decide)" >> $out/check_$pid.txt)
-fi
- if [ -n "$hits" ]; then
-  (cd $V && VERIF_ONLY="$hits" python3 check.py $pid --tier $tier > $out/check_$pid.txt 2>$out/check_$pid.err; echo "exit=$? (tier $tier, restricted to the harnesses the native sweep flagged: $hits)" >> $out/check_$pid.txt)
-  if ! grep -q "^VIOLATION" $out/check_$pid.txt && [ "$tier" = quick ]; then
-    # the flagged harnesses may belong to the thorough tier only (larger bounds, slow ones)
-    (cd $V && VERIF_ONLY="$hits" python3 check.py $pid --tier thorough > $out/check_${pid}_thorough.txt 2>$out/check_${pid}_thorough.err; echo "exit=$? (tier thorough, restricted to the harnesses the native sweep flagged: $hits)" >> $out/check_${pid}_thorough.txt)
-    if grep -q "^VIOLATION" $out/check_${pid}_thorough.txt; then cp $out/check_${pid}_thorough.txt $out/check_$pid.txt; fi
-  fi
-fi
-if [ -z "$hits" ] || { ! grep -q "^VIOLATION" $out/check_$pid.txt && grep -q "no obligation was generated" $out/check_$pid.txt; }; then
-  (cd $V && python3 check.py $pid --tier $tier > $out/check_$pid.txt 2>$out/check_$pid.err; echo "exit=$? (tier $tier, full check; native sweep flagged nothing the restricted runs could decide)" >> $out/check_$pid.txt)
-fi
-eif [ -n "$hits" ]; then
-  (cd $V && VERIF_ONLY="$hits" python3 check.py $pid --tier $tier > $out/check_$pid.txt 2>$out/check_$pid.err; echo "exit=$? (tier $tier, restricted to the harnesses the native sweep flagged: $hits)" >> $out/check_$pid.txt)
-  if ! grep -q "^VIOLATION" $out/check_$pid.txt && [ "$tier" = quick ]; then
-    # the flagged harnesses may belong to the thorough tier only (larger bounds, slow ones)
-    (cd $V && VERIF_ONLY="$hits" python3 check.py $pid --tier thorough > $out/check_${pid}_thorough.txt 2>$out/check_${pid}_thorough.err; echo "exit=$? (tier thorough, restricted to the harnesses the native sweep flagged: $hits)" >> $out/check_${pid}_thorough.txt)
-    if grep -q "^VIOLATION" $out/check_${pid}_thorough.txt; then cp $out/check_${pid}_thorough.txt $out/check_$pid.txt; fi
-  fi
-fi
-if [ -z "$hits" ] || { ! grep -q "^VIOLATION" $out/check_$pid.txt && grep -q "no obligation was generated" $out/check_$pid.txt; }; then
-  (cd $V && python3 check.py $pid --tier $tier > $out/check_$pid.txt 2>$out/check_$pid.err; echo "exit=$? (tier $tier, full check; native sweep flagged nothing the restricted runs could decide)" >> $out/check_$pid.txt)
-fi
-xif [ -n "$hits" ]; then
-  (cd $V && VERIF_ONLY="$hits" python3 check.py $pid --tier $tier > $out/check_$pid.txt 2>$out/check_$pid.err; echo "exit=$? (tier $tier, restricted to the harnesses the native sweep flagged: $hits)" >> $out/check_$pid.txt)
-  if ! grep -q "^VIOLATION" $out/check_$pid.txt && [ "$tier" = quick ]; then
-    # the flagged harnesses may belong to the thorough tier only (larger bounds, slow ones)
-    (cd $V && VERIF_ONLY="$hits" python3 check.py $pid --tier thorough > $out/check_${pid}_thorough.txt 2>$out/check_${pid}_thorough.err; echo "exit=$? (tier thorough, restricted to the harnesses the native sweep flagged: $hits)" >> $out/check_${pid}_thorough.txt)
-    if grep -q "^VIOLATION" $out/check_${pid}_thorough.txt; then cp $out/check_${pid}_thorough.txt $out/check_$pid.txt; fi
-  fi
-fi
-if [ -z "$hits" ] || { ! grep -q "^VIOLATION" $out/check_$pid.txt && grep -q "no obligation was generated" $out/check_$pid.txt; }; then
-  (cd $V && python3 check.py $pid --tier $tier > $out/check_$pid.txt 2>$out/check_$pid.err; echo "exit=$? (tier $tier, full check; native sweep flagged nothing the restricted runs could decide)" >> $out/check_$pid.txt)
-fi
-iif [ -n "$hits" ]; then
-  (cd $V && VERIF_ONLY="$hits" python3 check.py $pid --tier $tier > $out/check_$pid.txt 2>$out/check_$pid.err; echo "exit=$? (tier $tier, restricted to the harnesses the native sweep flagged: $hits)" >> $out/check_$pid.txt)
-  if ! grep -q "^VIOLATION" $out/check_$pid.txt && [ "$tier" = quick ]; then
-    # the flagged harnesses may belong to the thorough tier only (larger bounds, slow ones)
-    (cd $V && VERIF_ONLY="$hits" python3 check.py $pid --tier thorough > $out/check_${pid}_thorough.txt 2>$out/check_${pid}_thorough.err; echo "exit=$? (tier thorough, restricted to the harnesses the native sweep flagged: $hits)" >> $out/check_${pid}_thorough.txt)
-    if grep -q "^VIOLATION" $out/check_${pid}_thorough.txt; then cp $out/check_${pid}_thorough.txt $out/check_$pid.txt; fi
-  fi
-fi
-if [ -z "$hits" ] || { ! grep -q "^VIOLATION" $out/check_$pid.txt && grep -q "no obligation was generated" $out/check_$pid.txt; }; then
-  (cd $V && python3 check.py $pid --tier $tier > $out/check_$pid.txt 2>$out/check_$pid.err; echo "exit=$? (tier $tier, full check; native sweep flagged nothing the restricted runs could decide)" >> $out/check_$pid.txt)
-fi
-tif [ -n "$hits" ]; then
-  (cd $V && VERIF_ONLY="$hits" python3 check.py $pid --tier $tier > $out/check_$pid.txt 2>$out/check_$pid.err; echo "exit=$? (tier $tier, restricted to the harnesses the native sweep flagged: $hits)" >> $out/check_$pid.txt)
-  if ! grep -q "^VIOLATION" $out/check_$pid.txt && [ "$tier" = quick ]; then
-    # the flagged harnesses may belong to the thorough tier only (larger bounds, slow ones)
-    (cd $V && VERIF_ONLY="$hits" python3 check.py $pid --tier thorough > $out/check_${pid}_thorough.txt 2>$out/check_${pid}_thorough.err; echo "exit=$? (tier thorough, restricted to the harnesses the native sweep flagged: $hits)" >> $out/check_${pid}_thorough.txt)
-    if grep -q "^VIOLATION" $out/check_${pid}_thorough.txt; then cp $out/check_${pid}_thorough.txt $out/check_$pid.txt; fi
-  fi
-fi
-if [ -z "$hits" ] || { ! grep -q "^VIOLATION" $out/check_$pid.txt && grep -q "no obligation was generated" $out/check_$pid.txt; }; then
-  (cd $V && python3 check.py $pid --tier $tier > $out/check_$pid.txt 2>$out/check_$pid.err; echo "exit=$? (tier $tier, full check; native sweep flagged nothing the restricted runs could decide)" >> $out/check_$pid.txt)
-fi
- if [ -n "$hits" ]; then
-  (cd $V && VERIF_ONLY="$hits" python3 check.py $pid --tier $tier > $out/check_$pid.txt 2>$out/check_$pid.err; echo "exit=$? (tier $tier, restricted to the harnesses the native sweep flagged: $hits)" >> $out/check_$pid.txt)
-  if ! grep -q "^VIOLATION" $out/check_$pid.txt && [ "$tier" = quick ]; then
-    # the flagged harnesses may belong to the thorough tier only (larger bounds, slow ones)
-    (cd $V && VERIF_ONLY="$hits" python3 check.py $pid --tier thorough > $out/check_${pid}_thorough.txt 2>$out/check_${pid}_thorough.err; echo "exit=$? (tier thorough, restricted to the harnesses the native sweep flagged: $hits)" >> $out/check_${pid}_thorough.txt)
-    if grep -q "^VIOLATION" $out/check_${pid}_thorough.txt; then cp $out/check_${pid}_thorough.txt $out/check_$pid.txt; fi
-  fi
-fi
-if [ -z "$hits" ] || { ! grep -q "^VIOLATION" $out/check_$pid.txt && grep -q "no obligation was generated" $out/check_$pid.txt; }; then
-  (cd $V && python3 check.py $pid --tier $tier > $out/check_$pid.txt 2>$out/check_$pid.err; echo "exit=$? (tier $tier, full check; native sweep flagged nothing the restricted runs could decide)" >> $out/check_$pid.txt)
-fi
-2if [ -n "$hits" ]; then
-  (cd $V && VERIF_ONLY="$hits" python3 check.py $pid --tier $tier > $out/check_$pid.txt 2>$out/check_$pid.err; echo "exit=$? (tier $tier, restricted to the harnesses the native sweep flagged: $hits)" >> $out/check_$pid.txt)
-  if ! grep -q "^VIOLATION" $out/check_$pid.txt && [ "$tier" = quick ]; then
-    # the flagged harnesses may belong to the thorough tier only (larger bounds, slow ones)
-    (cd $V && VERIF_ONLY="$hits" python3 check.py $pid --tier thorough > $out/check_${pid}_thorough.txt 2>$out/check_${pid}_thorough.err; echo "exit=$? (tier thorough, restricted to the harnesses the native sweep flagged: $hits)" >> $out/check_${pid}_thorough.txt)
-    if grep -q "^VIOLATION" $out/check_${pid}_thorough.txt; then cp $out/check_${pid}_thorough.txt $out/check_$pid.txt; fi
-  fi
-fi
-if [ -z "$hits" ] || { ! grep -q "^VIOLATION" $out/check_$pid.txt && grep -q "no obligation was generated" $out/check_$pid.txt; }; then
-  (cd $V && python3 check.py $pid --tier $tier > $out/check_$pid.txt 2>$out/check_$pid.err; echo "exit=$? (tier $tier, full check; native sweep flagged nothing the restricted runs could decide)" >> $out/check_$pid.txt)
-fi
-;if [ -n "$hits" ]; then
-  (cd $V && VERIF_ONLY="$hits" python3 check.py $pid --tier $tier > $out/check_$pid.txt 2>$out/check_$pid.err; echo "exit=$? (tier $tier, restricted to the harnesses the native sweep flagged: $hits)" >> $out/check_$pid.txt)
-  if ! grep -q "^VIOLATION" $out/check_$pid.txt && [ "$tier" = quick ]; then
-    # the flagged harnesses may belong to the thorough tier only (larger bounds, slow ones)
-    (cd $V && VERIF_ONLY="$hits" python3 check.py $pid --tier thorough > $out/check_${pid}_thorough.txt 2>$out/check_${pid}_thorough.err; echo "exit=$? (tier thorough, restricted to the harnesses the native sweep flagged: $hits)" >> $out/check_${pid}_thorough.txt)
-    if grep -q "^VIOLATION" $out/check_${pid}_thorough.txt; then cp $out/check_${pid}_thorough.txt $out/check_$pid.txt; fi
-  fi
-fi
-if [ -z "$hits" ] || { ! grep -q "^VIOLATION" $out/check_$pid.txt && grep -q "no obligation was generated" $out/check_$pid.txt; }; then
-  (cd $V && python3 check.py $pid --tier $tier > $out/check_$pid.txt 2>$out/check_$pid.err; echo "exit=$? (tier $tier, full check; native sweep flagged nothing the restricted runs could decide)" >> $out/check_$pid.txt)
-fi
- if [ -n "$hits" ]; then
-  (cd $V && VERIF_ONLY="$hits" python3 check.py $pid --tier $tier > $out/check_$pid.txt 2>$out/check_$pid.err; echo "exit=$? (tier $tier, restricted to the harnesses the native sweep flagged: $hits)" >> $out/check_$pid.txt)
-  if ! grep -q "^VIOLATION" $out/check_$pid.txt && [ "$tier" = quick ]; then
-    # the flagged harnesses may belong to the thorough tier only (larger bounds, slow ones)
-    (cd $V && VERIF_ONLY="$hits" python3 check.py $pid --tier thorough > $out/check_${pid}_thorough.txt 2>$out/check_${pid}_thorough.err; echo "exit=$? (tier thorough, restricted to the harnesses the native sweep flagged: $hits)" >> $out/check_${pid}_thorough.txt)
-    if grep -q "^VIOLATION" $out/check_${pid}_thorough.txt; then cp $out/check_${pid}_thorough.txt $out/check_$pid.txt; fi
-  fi
-fi
-if [ -z "$hits" ] || { ! grep -q "^VIOLATION" $out/check_$pid.txt && grep -q "no obligation was generated" $out/check_$pid.txt; }; then
-  (cd $V && python3 check.py $pid --tier $tier > $out/check_$pid.txt 2>$out/check_$pid.err; echo "exit=$? (tier $tier, full check; native sweep flagged nothing the restricted runs could decide)" >> $out/check_$pid.txt)
-fi
-}if [ -n "$hits" ]; then
-  (cd $V && VERIF_ONLY="$hits" python3 check.py $pid --tier $tier > $out/check_$pid.txt 2>$out/check_$pid.err; echo "exit=$? (tier $tier, restricted to the harnesses the native sweep flagged: $hits)" >> $out/check_$pid.txt)
-  if ! grep -q "^VIOLATION" $out/check_$pid.txt && [ "$tier" = quick ]; then
-    # the flagged harnesses may belong to the thorough tier only (larger bounds, slow ones)
-    (cd $V && VERIF_ONLY="$hits" python3 check.py $pid --tier thorough > $out/check_${pid}_thorough.txt 2>$out/check_${pid}_thorough.err; echo "exit=$? (tier thorough, restricted to the harnesses the native sweep flagged: $hits)" >> $out/check_${pid}_thorough.txt)
-    if grep -q "^VIOLATION" $out/check_${pid}_thorough.txt; then cp $out/check_${pid}_thorough.txt $out/check_$pid.txt; fi
-  fi
-fi
-if [ -z "$hits" ] || { ! grep -q "^VIOLATION" $out/check_$pid.txt && grep -q "no obligation was generated" $out/check_$pid.txt; }; then
-  (cd $V && python3 check.py $pid --tier $tier > $out/check_$pid.txt 2>$out/check_$pid.err; echo "exit=$? (tier $tier, full check; native sweep flagged nothing the restricted runs could decide)" >> $out/check_$pid.txt)
-fi
-
-if [ -n "$hits" ]; then
-  (cd $V && VERIF_ONLY="$hits" python3 check.py $pid --tier $tier > $out/check_$pid.txt 2>$out/check_$pid.err; echo "exit=$? (tier $tier, restricted to the harnesses the native sweep flagged: $hits)" >> $out/check_$pid.txt)
-  if ! grep -q "^VIOLATION" $out/check_$pid.txt && [ "$tier" = quick ]; then
-    # the flagged harnesses may belong to the thorough tier only (larger bounds, slow ones)
-    (cd $V && VERIF_ONLY="$hits" python3 check.py $pid --tier thorough > $out/check_${pid}_thorough.txt 2>$out/check_${pid}_thorough.err; echo "exit=$? (tier thorough, restricted to the harnesses the native sweep flagged: $hits)" >> $out/check_${pid}_thorough.txt)
-    if grep -q "^VIOLATION" $out/check_${pid}_thorough.txt; then cp $out/check_${pid}_thorough.txt $out/check_$pid.txt; fi
-  fi
-fi
-if [ -z "$hits" ] || { ! grep -q "^VIOLATION" $out/check_$pid.txt && grep -q "no obligation was generated" $out/check_$pid.txt; }; then
-  (cd $V && python3 check.py $pid --tier $tier > $out/check_$pid.txt 2>$out/check_$pid.err; echo "exit=$? (tier $tier, full check; native sweep flagged nothing the restricted runs could decide)" >> $out/check_$pid.txt)
-fi
-gif [ -n "$hits" ]; then
-  (cd $V && VERIF_ONLY="$hits" python3 check.py $pid --tier $tier > $out/check_$pid.txt 2>$out/check_$pid.err; echo "exit=$? (tier $tier, restricted to the harnesses the native sweep flagged: $hits)" >> $out/check_$pid.txt)
-  if ! grep -q "^VIOLATION" $out/check_$pid.txt && [ "$tier" = quick ]; then
-    # the flagged harnesses may belong to the thorough tier only (larger bounds, slow ones)
-    (cd $V && VERIF_ONLY="$hits" python3 check.py $pid --tier thorough > $out/check_${pid}_thorough.txt 2>$out/check_${pid}_thorough.err; echo "exit=$? (tier thorough, restricted to the harnesses the native sweep flagged: $hits)" >> $out/check_${pid}_thorough.txt)
-    if grep -q "^VIOLATION" $out/check_${pid}_thorough.txt; then cp $out/check_${pid}_thorough.txt $out/check_$pid.txt; fi
-  fi
-fi
-if [ -z "$hits" ] || { ! grep -q "^VIOLATION" $out/check_$pid.txt && grep -q "no obligation was generated" $out/check_$pid.txt; }; then
-  (cd $V && python3 check.py $pid --tier $tier > $out/check_$pid.txt 2>$out/check_$pid.err; echo "exit=$? (tier $tier, full check; native sweep flagged nothing the restricted runs could decide)" >> $out/check_$pid.txt)
-fi
-iif [ -n "$hits" ]; then
-  (cd $V && VERIF_ONLY="$hits" python3 check.py $pid --tier $tier > $out/check_$pid.txt 2>$out/check_$pid.err; echo "exit=$? (tier $tier, restricted to the harnesses the native sweep flagged: $hits)" >> $out/check_$pid.txt)
-  if ! grep -q "^VIOLATION" $out/check_$pid.txt && [ "$tier" = quick ]; then
-    # the flagged harnesses may belong to the thorough tier only (larger bounds, slow ones)
-    (cd $V && VERIF_ONLY="$hits" python3 check.py $pid --tier thorough > $out/check_${pid}_thorough.txt 2>$out/check_${pid}_thorough.err; echo "exit=$? (tier thorough, restricted to the harnesses the native sweep flagged: $hits)" >> $out/check_${pid}_thorough.txt)
-    if grep -q "^VIOLATION" $out/check_${pid}_thorough.txt; then cp $out/check_${pid}_thorough.txt $out/check_$pid.txt; fi
-  fi
-fi
-if [ -z "$hits" ] || { ! grep -q "^VIOLATION" $out/check_$pid.txt && grep -q "no obligation was generated" $out/check_$pid.txt; }; then
-  (cd $V && python3 check.py $pid --tier $tier > $out/check_$pid.txt 2>$out/check_$pid.err; echo "exit=$? (tier $tier, full check; native sweep flagged nothing the restricted runs could decide)" >> $out/check_$pid.txt)
-fi
-tif [ -n "$hits" ]; then
-  (cd $V && VERIF_ONLY="$hits" python3 check.py $pid --tier $tier > $out/check_$pid.txt 2>$out/check_$pid.err; echo "exit=$? (tier $tier, restricted to the harnesses the native sweep flagged: $hits)" >> $out/check_$pid.txt)
-  if ! grep -q "^VIOLATION" $out/check_$pid.txt && [ "$tier" = quick ]; then
-    # the flagged harnesses may belong to the thorough tier only (larger bounds, slow ones)
-    (cd $V && VERIF_ONLY="$hits" python3 check.py $pid --tier thorough > $out/check_${pid}_thorough.txt 2>$out/check_${pid}_thorough.err; echo "exit=$? (tier thorough, restricted to the harnesses the native sweep flagged: $hits)" >> $out/check_${pid}_thorough.txt)
-    if grep -q "^VIOLATION" $out/check_${pid}_thorough.txt; then cp $out/check_${pid}_thorough.txt $out/check_$pid.txt; fi
-  fi
-fi
-if [ -z "$hits" ] || { ! grep -q "^VIOLATION" $out/check_$pid.txt && grep -q "no obligation was generated" $out/check_$pid.txt; }; then
-  (cd $V && python3 check.py $pid --tier $tier > $out/check_$pid.txt 2>$out/check_$pid.err; echo "exit=$? (tier $tier, full check; native sweep flagged nothing the restricted runs could decide)" >> $out/check_$pid.txt)
-fi
- if [ -n "$hits" ]; then
-  (cd $V && VERIF_ONLY="$hits" python3 check.py $pid --tier $tier > $out/check_$pid.txt 2>$out/check_$pid.err; echo "exit=$? (tier $tier, restricted to the harnesses the native sweep flagged: $hits)" >> $out/check_$pid.txt)
-  if ! grep -q "^VIOLATION" $out/check_$pid.txt && [ "$tier" = quick ]; then
-    # the flagged harnesses may belong to the thorough tier only (larger bounds, slow ones)
-    (cd $V && VERIF_ONLY="$hits" python3 check.py $pid --tier thorough > $out/check_${pid}_thorough.txt 2>$out/check_${pid}_thorough.err; echo "exit=$? (tier thorough, restricted to the harnesses the native sweep flagged: $hits)" >> $out/check_${pid}_thorough.txt)
-    if grep -q "^VIOLATION" $out/check_${pid}_thorough.txt; then cp $out/check_${pid}_thorough.txt $out/check_$pid.txt; fi
-  fi
-fi
-if [ -z "$hits" ] || { ! grep -q "^VIOLATION" $out/check_$pid.txt && grep -q "no obligation was generated" $out/check_$pid.txt; }; then
-  (cd $V && python3 check.py $pid --tier $tier > $out/check_$pid.txt 2>$out/check_$pid.err; echo "exit=$? (tier $tier, full check; native sweep flagged nothing the restricted runs could decide)" >> $out/check_$pid.txt)
-fi
--if [ -n "$hits" ]; then
-  (cd $V && VERIF_ONLY="$hits" python3 check.py $pid --tier $tier > $out/check_$pid.txt 2>$out/check_$pid.err; echo "exit=$? (tier $tier, restricted to the harnesses the native sweep flagged: $hits)" >> $out/check_$pid.txt)
-  if ! grep -q "^VIOLATION" $out/check_$pid.txt && [ "$tier" = quick ]; then
-    # the flagged harnesses may belong to the thorough tier only (larger bounds, slow ones)
-    (cd $V && VERIF_ONLY="$hits" python3 check.py $pid --tier thorough > $out/check_${pid}_thorough.txt 2>$out/check_${pid}_thorough.err; echo "exit=$? (tier thorough, restricted to the harnesses the native sweep flagged: $hits)" >> $out/check_${pid}_thorough.txt)
-    if grep -q "^VIOLATION" $out/check_${pid}_thorough.txt; then cp $out/check_${pid}_thorough.txt $out/check_$pid.txt; fi
-  fi
-fi
-if [ -z "$hits" ] || { ! grep -q "^VIOLATION" $out/check_$pid.txt && grep -q "no obligation was generated" $out/check_$pid.txt; }; then
-  (cd $V && python3 check.py $pid --tier $tier > $out/check_$pid.txt 2>$out/check_$pid.err; echo "exit=$? (tier $tier, full check; native sweep flagged nothing the restricted runs could decide)" >> $out/check_$pid.txt)
-fi
-Cif [ -n "$hits" ]; then
-  (cd $V && VERIF_ONLY="$hits" python3 check.py $pid --tier $tier > $out/check_$pid.txt 2>$out/check_$pid.err; echo "exit=$? (tier $tier, restricted to the harnesses the native sweep flagged: $hits)" >> $out/check_$pid.txt)
-  if ! grep -q "^VIOLATION" $out/check_$pid.txt && [ "$tier" = quick ]; then
-    # the flagged harnesses may belong to the thorough tier only (larger bounds, slow ones)
-    (cd $V && VERIF_ONLY="$hits" python3 check.py $pid --tier thorough > $out/check_${pid}_thorough.txt 2>$out/check_${pid}_thorough.err; echo "exit=$? (tier thorough, restricted to the harnesses the native sweep flagged: $hits)" >> $out/check_${pid}_thorough.txt)
-    if grep -q "^VIOLATION" $out/check_${pid}_thorough.txt; then cp $out/check_${pid}_thorough.txt $out/check_$pid.txt; fi
-  fi
-fi
-if [ -z "$hits" ] || { ! grep -q "^VIOLATION" $out/check_$pid.txt && grep -q "no obligation was generated" $out/check_$pid.txt; }; then
-  (cd $V && python3 check.py $pid --tier $tier > $out/check_$pid.txt 2>$out/check_$pid.err; echo "exit=$? (tier $tier, full check; native sweep flagged nothing the restricted runs could decide)" >> $out/check_$pid.txt)
-fi
- if [ -n "$hits" ]; then
-  (cd $V && VERIF_ONLY="$hits" python3 check.py $pid --tier $tier > $out/check_$pid.txt 2>$out/check_$pid.err; echo "exit=$? (tier $tier, restricted to the harnesses the native sweep flagged: $hits)" >> $out/check_$pid.txt)
-  if ! grep -q "^VIOLATION" $out/check_$pid.txt && [ "$tier" = quick ]; then
-    # the flagged harnesses may belong to the thorough tier only (larger bounds, slow ones)
-    (cd $V && VERIF_ONLY="$hits" python3 check.py $pid --tier thorough > $out/check_${pid}_thorough.txt 2>$out/check_${pid}_thorough.err; echo "exit=$? (tier thorough, restricted to the harnesses the native sweep flagged: $hits)" >> $out/check_${pid}_thorough.txt)
-    if grep -q "^VIOLATION" $out/check_${pid}_thorough.txt; then cp $out/check_${pid}_thorough.txt $out/check_$pid.txt; fi
-  fi
-fi
-if [ -z "$hits" ] || { ! grep -q "^VIOLATION" $out/check_$pid.txt && grep -q "no obligation was generated" $out/check_$pid.txt; }; then
-  (cd $V && python3 check.py $pid --tier $tier > $out/check_$pid.txt 2>$out/check_$pid.err; echo "exit=$? (tier $tier, full check; native sweep flagged nothing the restricted runs could decide)" >> $out/check_$pid.txt)
-fi
-$if [ -n "$hits" ]; then
-  (cd $V && VERIF_ONLY="$hits" python3 check.py $pid --tier $tier > $out/check_$pid.txt 2>$out/check_$pid.err; echo "exit=$? (tier $tier, restricted to the harnesses the native sweep flagged: $hits)" >> $out/check_$pid.txt)
-  if ! grep -q "^VIOLATION" $out/check_$pid.txt && [ "$tier" = quick ]; then
-    # the flagged harnesses may belong to the thorough tier only (larger bounds, slow ones)
-    (cd $V && VERIF_ONLY="$hits" python3 check.py $pid --tier thorough > $out/check_${pid}_thorough.txt 2>$out/check_${pid}_thorough.err; echo "exit=$? (tier thorough, restricted to the harnesses the native sweep flagged: $hits)" >> $out/check_${pid}_thorough.txt)
-    if grep -q "^VIOLATION" $out/check_${pid}_thorough.txt; then cp $out/check_${pid}_thorough.txt $out/check_$pid.txt; fi
-  fi
-fi
-if [ -z "$hits" ] || { ! grep -q "^VIOLATION" $out/check_$pid.txt && grep -q "no obligation was generated" $out/check_$pid.txt; }; then
-  (cd $V && python3 check.py $pid --tier $tier > $out/check_$pid.txt 2>$out/check_$pid.err; echo "exit=$? (tier $tier, full check; native sweep flagged nothing the restricted runs could decide)" >> $out/check_$pid.txt)
-fi
-wif [ -n "$hits" ]; then
-  (cd $V && VERIF_ONLY="$hits" python3 check.py $pid --tier $tier > $out/check_$pid.txt 2>$out/check_$pid.err; echo "exit=$? (tier $tier, restricted to the harnesses the native sweep flagged: $hits)" >> $out/check_$pid.txt)
-  if ! grep -q "^VIOLATION" $out/check_$pid.txt && [ "$tier" = quick ]; then
-    # the flagged harnesses may belong to the thorough tier only (larger bounds, slow ones)
-    (cd $V && VERIF_ONLY="$hits" python3 check.py $pid --tier thorough > $out/check_${pid}_thorough.txt 2>$out/check_${pid}_thorough.err; echo "exit=$? (tier thorough, restricted to the harnesses the native sweep flagged: $hits)" >> $out/check_${pid}_thorough.txt)
-    if grep -q "^VIOLATION" $out/check_${pid}_thorough.txt; then cp $out/check_${pid}_thorough.txt $out/check_$pid.txt; fi
-  fi
-fi
-if [ -z "$hits" ] || { ! grep -q "^VIOLATION" $out/check_$pid.txt && grep -q "no obligation was generated" $out/check_$pid.txt; }; then
-  (cd $V && python3 check.py $pid --tier $tier > $out/check_$pid.txt 2>$out/check_$pid.err; echo "exit=$? (tier $tier, full check; native sweep flagged nothing the restricted runs could decide)" >> $out/check_$pid.txt)
-fi
-tif [ -n "$hits" ]; then
-  (cd $V && VERIF_ONLY="$hits" python3 check.py $pid --tier $tier > $out/check_$pid.txt 2>$out/check_$pid.err; echo "exit=$? (tier $tier, restricted to the harnesses the native sweep flagged: $hits)" >> $out/check_$pid.txt)
-  if ! grep -q "^VIOLATION" $out/check_$pid.txt && [ "$tier" = quick ]; then
-    # the flagged harnesses may belong to the thorough tier only (larger bounds, slow ones)
-    (cd $V && VERIF_ONLY="$hits" python3 check.py $pid --tier thorough > $out/check_${pid}_thorough.txt 2>$out/check_${pid}_thorough.err; echo "exit=$? (tier thorough, restricted to the harnesses the native sweep flagged: $hits)" >> $out/check_${pid}_thorough.txt)
-    if grep -q "^VIOLATION" $out/check_${pid}_thorough.txt; then cp $out/check_${pid}_thorough.txt $out/check_$pid.txt; fi
-  fi
-fi
-if [ -z "$hits" ] || { ! grep -q "^VIOLATION" $out/check_$pid.txt && grep -q "no obligation was generated" $out/check_$pid.txt; }; then
-  (cd $V && python3 check.py $pid --tier $tier > $out/check_$pid.txt 2>$out/check_$pid.err; echo "exit=$? (tier $tier, full check; native sweep flagged nothing the restricted runs could decide)" >> $out/check_$pid.txt)
-fi
- if [ -n "$hits" ]; then
-  (cd $V && VERIF_ONLY="$hits" python3 check.py $pid --tier $tier > $out/check_$pid.txt 2>$out/check_$pid.err; echo "exit=$? (tier $tier, restricted to the harnesses the native sweep flagged: $hits)" >> $out/check_$pid.txt)
-  if ! grep -q "^VIOLATION" $out/check_$pid.txt && [ "$tier" = quick ]; then
-    # the flagged harnesses may belong to the thorough tier only (larger bounds, slow ones)
-    (cd $V && VERIF_ONLY="$hits" python3 check.py $pid --tier thorough > $out/check_${pid}_thorough.txt 2>$out/check_${pid}_thorough.err; echo "exit=$? (tier thorough, restricted to the harnesses the native sweep flagged: $hits)" >> $out/check_${pid}_thorough.txt)
-    if grep -q "^VIOLATION" $out/check_${pid}_thorough.txt; then cp $out/check_${pid}_thorough.txt $out/check_$pid.txt; fi
-  fi
-fi
-if [ -z "$hits" ] || { ! grep -q "^VIOLATION" $out/check_$pid.txt && grep -q "no obligation was generated" $out/check_$pid.txt; }; then
-  (cd $V && python3 check.py $pid --tier $tier > $out/check_$pid.txt 2>$out/check_$pid.err; echo "exit=$? (tier $tier, full check; native sweep flagged nothing the restricted runs could decide)" >> $out/check_$pid.txt)
-fi
-aif [ -n "$hits" ]; then
-  (cd $V && VERIF_ONLY="$hits" python3 check.py $pid --tier $tier > $out/check_$pid.txt 2>$out/check_$pid.err; echo "exit=$? (tier $tier, restricted to the harnesses the native sweep flagged: $hits)" >> $out/check_$pid.txt)
-  if ! grep -q "^VIOLATION" $out/check_$pid.txt && [ "$tier" = quick ]; then
-    # the flagged harnesses may belong to the thorough tier only (larger bounds, slow ones)
-    (cd $V && VERIF_ONLY="$hits" python3 check.py $pid --tier thorough > $out/check_${pid}_thorough.txt 2>$out/check_${pid}_thorough.err; echo "exit=$? (tier thorough, restricted to the harnesses the native sweep flagged: $hits)" >> $out/check_${pid}_thorough.txt)
-    if grep -q "^VIOLATION" $out/check_${pid}_thorough.txt; then cp $out/check_${pid}_thorough.txt $out/check_$pid.txt; fi
-  fi
-fi
-if [ -z "$hits" ] || { ! grep -q "^VIOLATION" $out/check_$pid.txt && grep -q "no obligation was generated" $out/check_$pid.txt; }; then
-  (cd $V && python3 check.py $pid --tier $tier > $out/check_$pid.txt 2>$out/check_$pid.err; echo "exit=$? (tier $tier, full check; native sweep flagged nothing the restricted runs could decide)" >> $out/check_$pid.txt)
-fi
-pif [ -n "$hits" ]; then
-  (cd $V && VERIF_ONLY="$hits" python3 check.py $pid --tier $tier > $out/check_$pid.txt 2>$out/check_$pid.err; echo "exit=$? (tier $tier, restricted to the harnesses the native sweep flagged: $hits)" >> $out/check_$pid.txt)
-  if ! grep -q "^VIOLATION" $out/check_$pid.txt && [ "$tier" = quick ]; then
-    # the flagged harnesses may belong to the thorough tier only (larger bounds, slow ones)
-    (cd $V && VERIF_ONLY="$hits" python3 check.py $pid --tier thorough > $out/check_${pid}_thorough.txt 2>$out/check_${pid}_thorough.err; echo "exit=$? (tier thorough, restricted to the harnesses the native sweep flagged: $hits)" >> $out/check_${pid}_thorough.txt)
-    if grep -q "^VIOLATION" $out/check_${pid}_thorough.txt; then cp $out/check_${pid}_thorough.txt $out/check_$pid.txt; fi
-  fi
-fi
-if [ -z "$hits" ] || { ! grep -q "^VIOLATION" $out/check_$pid.txt && grep -q "no obligation was generated" $out/check_$pid.txt; }; then
-  (cd $V && python3 check.py $pid --tier $tier > $out/check_$pid.txt 2>$out/check_$pid.err; echo "exit=$? (tier $tier, full check; native sweep flagged nothing the restricted runs could decide)" >> $out/check_$pid.txt)
-fi
-pif [ -n "$hits" ]; then
-  (cd $V && VERIF_ONLY="$hits" python3 check.py $pid --tier $tier > $out/check_$pid.txt 2>$out/check_$pid.err; echo "exit=$? (tier $tier, restricted to the harnesses the native sweep flagged: $hits)" >> $out/check_$pid.txt)
-  if ! grep -q "^VIOLATION" $out/check_$pid.txt && [ "$tier" = quick ]; then
-    # the flagged harnesses may belong to the thorough tier only (larger bounds, slow ones)
-    (cd $V && VERIF_ONLY="$hits" python3 check.py $pid --tier thorough > $out/check_${pid}_thorough.txt 2>$out/check_${pid}_thorough.err; echo "exit=$? (tier thorough, restricted to the harnesses the native sweep flagged: $hits)" >> $out/check_${pid}_thorough.txt)
-    if grep -q "^VIOLATION" $out/check_${pid}_thorough.txt; then cp $out/check_${pid}_thorough.txt $out/check_$pid.txt; fi
-  fi
-fi
-if [ -z "$hits" ] || { ! grep -q "^VIOLATION" $out/check_$pid.txt && grep -q "no obligation was generated" $out/check_$pid.txt; }; then
-  (cd $V && python3 check.py $pid --tier $tier > $out/check_$pid.txt 2>$out/check_$pid.err; echo "exit=$? (tier $tier, full check; native sweep flagged nothing the restricted runs could decide)" >> $out/check_$pid.txt)
-fi
-lif [ -n "$hits" ]; then
-  (cd $V && VERIF_ONLY="$hits" python3 check.py $pid --tier $tier > $out/check_$pid.txt 2>$out/check_$pid.err; echo "exit=$? (tier $tier, restricted to the harnesses the native sweep flagged: $hits)" >> $out/check_$pid.txt)
-  if ! grep -q "^VIOLATION" $out/check_$pid.txt && [ "$tier" = quick ]; then
-    # the flagged harnesses may belong to the thorough tier only (larger bounds, slow ones)
-    (cd $V && VERIF_ONLY="$hits" python3 check.py $pid --tier thorough > $out/check_${pid}_thorough.txt 2>$out/check_${pid}_thorough.err; echo "exit=$? (tier thorough, restricted to the harnesses the native sweep flagged: $hits)" >> $out/check_${pid}_thorough.txt)
-    if grep -q "^VIOLATION" $out/check_${pid}_thorough.txt; then cp $out/check_${pid}_thorough.txt $out/check_$pid.txt; fi
-  fi
-fi
-if [ -z "$hits" ] || { ! grep -q "^VIOLATION" $out/check_$pid.txt && grep -q "no obligation was generated" $out/check_$pid.txt; }; then
-  (cd $V && python3 check.py $pid --tier $tier > $out/check_$pid.txt 2>$out/check_$pid.err; echo "exit=$? (tier $tier, full check; native sweep flagged nothing the restricted runs could decide)" >> $out/check_$pid.txt)
-fi
-yif [ -n "$hits" ]; then
-  (cd $V && VERIF_ONLY="$hits" python3 check.py $pid --tier $tier > $out/check_$pid.txt 2>$out/check_$pid.err; echo "exit=$? (tier $tier, restricted to the harnesses the native sweep flagged: $hits)" >> $out/check_$pid.txt)
-  if ! grep -q "^VIOLATION" $out/check_$pid.txt && [ "$tier" = quick ]; then
-    # the flagged harnesses may belong to the thorough tier only (larger bounds, slow ones)
-    (cd $V && VERIF_ONLY="$hits" python3 check.py $pid --tier thorough > $out/check_${pid}_thorough.txt 2>$out/check_${pid}_thorough.err; echo "exit=$? (tier thorough, restricted to the harnesses the native sweep flagged: $hits)" >> $out/check_${pid}_thorough.txt)
-    if grep -q "^VIOLATION" $out/check_${pid}_thorough.txt; then cp $out/check_${pid}_thorough.txt $out/check_$pid.txt; fi
-  fi
-fi
-if [ -z "$hits" ] || { ! grep -q "^VIOLATION" $out/check_$pid.txt && grep -q "no obligation was generated" $out/check_$pid.txt; }; then
-  (cd $V && python3 check.py $pid --tier $tier > $out/check_$pid.txt 2>$out/check_$pid.err; echo "exit=$? (tier $tier, full check; native sweep flagged nothing the restricted runs could decide)" >> $out/check_$pid.txt)
-fi
- if [ -n "$hits" ]; then
-  (cd $V && VERIF_ONLY="$hits" python3 check.py $pid --tier $tier > $out/check_$pid.txt 2>$out/check_$pid.err; echo "exit=$? (tier $tier, restricted to the harnesses the native sweep flagged: $hits)" >> $out/check_$pid.txt)
-  if ! grep -q "^VIOLATION" $out/check_$pid.txt && [ "$tier" = quick ]; then
-    # the flagged harnesses may belong to the thorough tier only (larger bounds, slow ones)
-    (cd $V && VERIF_ONLY="$hits" python3 check.py $pid --tier thorough > $out/check_${pid}_thorough.txt 2>$out/check_${pid}_thorough.err; echo "exit=$? (tier thorough, restricted to the harnesses the native sweep flagged: $hits)" >> $out/check_${pid}_thorough.txt)
-    if grep -q "^VIOLATION" $out/check_${pid}_thorough.txt; then cp $out/check_${pid}_thorough.txt $out/check_$pid.txt; fi
-  fi
-fi
-if [ -z "$hits" ] || { ! grep -q "^VIOLATION" $out/check_$pid.txt && grep -q "no obligation was generated" $out/check_$pid.txt; }; then
-  (cd $V && python3 check.py $pid --tier $tier > $out/check_$pid.txt 2>$out/check_$pid.err; echo "exit=$? (tier $tier, full check; native sweep flagged nothing the restricted runs could decide)" >> $out/check_$pid.txt)
-fi
-$if [ -n "$hits" ]; then
-  (cd $V && VERIF_ONLY="$hits" python3 check.py $pid --tier $tier > $out/check_$pid.txt 2>$out/check_$pid.err; echo "exit=$? (tier $tier, restricted to the harnesses the native sweep flagged: $hits)" >> $out/check_$pid.txt)
-  if ! grep -q "^VIOLATION" $out/check_$pid.txt && [ "$tier" = quick ]; then
-    # the flagged harnesses may belong to the thorough tier only (larger bounds, slow ones)
-    (cd $V && VERIF_ONLY="$hits" python3 check.py $pid --tier thorough > $out/check_${pid}_thorough.txt 2>$out/check_${pid}_thorough.err; echo "exit=$? (tier thorough, restricted to the harnesses the native sweep flagged: $hits)" >> $out/check_${pid}_thorough.txt)
-    if grep -q "^VIOLATION" $out/check_${pid}_thorough.txt; then cp $out/check_${pid}_thorough.txt $out/check_$pid.txt; fi
-  fi
-fi
-if [ -z "$hits" ] || { ! grep -q "^VIOLATION" $out/check_$pid.txt && grep -q "no obligation was generated" $out/check_$pid.txt; }; then
-  (cd $V && python3 check.py $pid --tier $tier > $out/check_$pid.txt 2>$out/check_$pid.err; echo "exit=$? (tier $tier, full check; native sweep flagged nothing the restricted runs could decide)" >> $out/check_$pid.txt)
-fi
-Vif [ -n "$hits" ]; then
-  (cd $V && VERIF_ONLY="$hits" python3 check.py $pid --tier $tier > $out/check_$pid.txt 2>$out/check_$pid.err; echo "exit=$? (tier $tier, restricted to the harnesses the native sweep flagged: $hits)" >> $out/check_$pid.txt)
-  if ! grep -q "^VIOLATION" $out/check_$pid.txt && [ "$tier" = quick ]; then
-    # the flagged harnesses may belong to the thorough tier only (larger bounds, slow ones)
-    (cd $V && VERIF_ONLY="$hits" python3 check.py $pid --tier thorough > $out/check_${pid}_thorough.txt 2>$out/check_${pid}_thorough.err; echo "exit=$? (tier thorough, restricted to the harnesses the native sweep flagged: $hits)" >> $out/check_${pid}_thorough.txt)
-    if grep -q "^VIOLATION" $out/check_${pid}_thorough.txt; then cp $out/check_${pid}_thorough.txt $out/check_$pid.txt; fi
-  fi
-fi
-if [ -z "$hits" ] || { ! grep -q "^VIOLATION" $out/check_$pid.txt && grep -q "no obligation was generated" $out/check_$pid.txt; }; then
-  (cd $V && python3 check.py $pid --tier $tier > $out/check_$pid.txt 2>$out/check_$pid.err; echo "exit=$? (tier $tier, full check; native sweep flagged nothing the restricted runs could decide)" >> $out/check_$pid.txt)
-fi
-/if [ -n "$hits" ]; then
-  (cd $V && VERIF_ONLY="$hits" python3 check.py $pid --tier $tier > $out/check_$pid.txt 2>$out/check_$pid.err; echo "exit=$? (tier $tier, restricted to the harnesses the native sweep flagged: $hits)" >> $out/check_$pid.txt)
-  if ! grep -q "^VIOLATION" $out/check_$pid.txt && [ "$tier" = quick ]; then
-    # the flagged harnesses may belong to the thorough tier only (larger bounds, slow ones)
-    (cd $V && VERIF_ONLY="$hits" python3 check.py $pid --tier thorough > $out/check_${pid}_thorough.txt 2>$out/check_${pid}_thorough.err; echo "exit=$? (tier thorough, restricted to the harnesses the native sweep flagged: $hits)" >> $out/check_${pid}_thorough.txt)
-    if grep -q "^VIOLATION" $out/check_${pid}_thorough.txt; then cp $out/check_${pid}_thorough.txt $out/check_$pid.txt; fi
-  fi
-fi
-if [ -z "$hits" ] || { ! grep -q "^VIOLATION" $out/check_$pid.txt && grep -q "no obligation was generated" $out/check_$pid.txt; }; then
-  (cd $V && python3 check.py $pid --tier $tier > $out/check_$pid.txt 2>$out/check_$pid.err; echo "exit=$? (tier $tier, full check; native sweep flagged nothing the restricted runs could decide)" >> $out/check_$pid.txt)
-fi
-sif [ -n "$hits" ]; then
-  (cd $V && VERIF_ONLY="$hits" python3 check.py $pid --tier $tier > $out/check_$pid.txt 2>$out/check_$pid.err; echo "exit=$? (tier $tier, restricted to the harnesses the native sweep flagged: $hits)" >> $out/check_$pid.txt)
-  if ! grep -q "^VIOLATION" $out/check_$pid.txt && [ "$tier" = quick ]; then
-    # the flagged harnesses may belong to the thorough tier only (larger bounds, slow ones)
-    (cd $V && VERIF_ONLY="$hits" python3 check.py $pid --tier thorough > $out/check_${pid}_thorough.txt 2>$out/check_${pid}_thorough.err; echo "exit=$? (tier thorough, restricted to the harnesses the native sweep flagged: $hits)" >> $out/check_${pid}_thorough.txt)
-    if grep -q "^VIOLATION" $out/check_${pid}_thorough.txt; then cp $out/check_${pid}_thorough.txt $out/check_$pid.txt; fi
-  fi
-fi
-if [ -z "$hits" ] || { ! grep -q "^VIOLATION" $out/check_$pid.txt && grep -q "no obligation was generated" $out/check_$pid.txt; }; then
-  (cd $V && python3 check.py $pid --tier $tier > $out/check_$pid.txt 2>$out/check_$pid.err; echo "exit=$? (tier $tier, full check; native sweep flagged nothing the restricted runs could decide)" >> $out/check_$pid.txt)
-fi
-eif [ -n "$hits" ]; then
-  (cd $V && VERIF_ONLY="$hits" python3 check.py $pid --tier $tier > $out/check_$pid.txt 2>$out/check_$pid.err; echo "exit=$? (tier $tier, restricted to the harnesses the native sweep flagged: $hits)" >> $out/check_$pid.txt)
-  if ! grep -q "^VIOLATION" $out/check_$pid.txt && [ "$tier" = quick ]; then
-    # the flagged harnesses may belong to the thorough tier only (larger bounds, slow ones)
-    (cd $V && VERIF_ONLY="$hits" python3 check.py $pid --tier thorough > $out/check_${pid}_thorough.txt 2>$out/check_${pid}_thorough.err; echo "exit=$? (tier thorough, restricted to the harnesses the native sweep flagged: $hits)" >> $out/check_${pid}_thorough.txt)
-    if grep -q "^VIOLATION" $out/check_${pid}_thorough.txt; then cp $out/check_${pid}_thorough.txt $out/check_$pid.txt; fi
-  fi
-fi
-if [ -z "$hits" ] || { ! grep -q "^VIOLATION" $out/check_$pid.txt && grep -q "no obligation was generated" $out/check_$pid.txt; }; then
-  (cd $V && python3 check.py $pid --tier $tier > $out/check_$pid.txt 2>$out/check_$pid.err; echo "exit=$? (tier $tier, full check; native sweep flagged nothing the restricted runs could decide)" >> $out/check_$pid.txt)
-fi
-eif [ -n "$hits" ]; then
-  (cd $V && VERIF_ONLY="$hits" python3 check.py $pid --tier $tier > $out/check_$pid.txt 2>$out/check_$pid.err; echo "exit=$? (tier $tier, restricted to the harnesses the native sweep flagged: $hits)" >> $out/check_$pid.txt)
-  if ! grep -q "^VIOLATION" $out/check_$pid.txt && [ "$tier" = quick ]; then
-    # the flagged harnesses may belong to the thorough tier only (larger bounds, slow ones)
-    (cd $V && VERIF_ONLY="$hits" python3 check.py $pid --tier thorough > $out/check_${pid}_thorough.txt 2>$out/check_${pid}_thorough.err; echo "exit=$? (tier thorough, restricted to the harnesses the native sweep flagged: $hits)" >> $out/check_${pid}_thorough.txt)
-    if grep -q "^VIOLATION" $out/check_${pid}_thorough.txt; then cp $out/check_${pid}_thorough.txt $out/check_$pid.txt; fi
-  fi
-fi
-if [ -z "$hits" ] || { ! grep -q "^VIOLATION" $out/check_$pid.txt && grep -q "no obligation was generated" $out/check_$pid.txt; }; then
-  (cd $V && python3 check.py $pid --tier $tier > $out/check_$pid.txt 2>$out/check_$pid.err; echo "exit=$? (tier $tier, full check; native sweep flagged nothing the restricted runs could decide)" >> $out/check_$pid.txt)
-fi
-dif [ -n "$hits" ]; then
-  (cd $V && VERIF_ONLY="$hits" python3 check.py $pid --tier $tier > $out/check_$pid.txt 2>$out/check_$pid.err; echo "exit=$? (tier $tier, restricted to the harnesses the native sweep flagged: $hits)" >> $out/check_$pid.txt)
-  if ! grep -q "^VIOLATION" $out/check_$pid.txt && [ "$tier" = quick ]; then
-    # the flagged harnesses may belong to the thorough tier only (larger bounds, slow ones)
-    (cd $V && VERIF_ONLY="$hits" python3 check.py $pid --tier thorough > $out/check_${pid}_thorough.txt 2>$out/check_${pid}_thorough.err; echo "exit=$? (tier thorough, restricted to the harnesses the native sweep flagged: $hits)" >> $out/check_${pid}_thorough.txt)
-    if grep -q "^VIOLATION" $out/check_${pid}_thorough.txt; then cp $out/check_${pid}_thorough.txt $out/check_$pid.txt; fi
-  fi
-fi
-if [ -z "$hits" ] || { ! grep -q "^VIOLATION" $out/check_$pid.txt && grep -q "no obligation was generated" $out/check_$pid.txt; }; then
-  (cd $V && python3 check.py $pid --tier $tier > $out/check_$pid.txt 2>$out/check_$pid.err; echo "exit=$? (tier $tier, full check; native sweep flagged nothing the restricted runs could decide)" >> $out/check_$pid.txt)
-fi
-eif [ -n "$hits" ]; then
-  (cd $V && VERIF_ONLY="$hits" python3 check.py $pid --tier $tier > $out/check_$pid.txt 2>$out/check_$pid.err; echo "exit=$? (tier $tier, restricted to the harnesses the native sweep flagged: $hits)" >> $out/check_$pid.txt)
-  if ! grep -q "^VIOLATION" $out/check_$pid.txt && [ "$tier" = quick ]; then
-    # the flagged harnesses may belong to the thorough tier only (larger bounds, slow ones)
-    (cd $V && VERIF_ONLY="$hits" python3 check.py $pid --tier thorough > $out/check_${pid}_thorough.txt 2>$out/check_${pid}_thorough.err; echo "exit=$? (tier thorough, restricted to the harnesses the native sweep flagged: $hits)" >> $out/check_${pid}_thorough.txt)
-    if grep -q "^VIOLATION" $out/check_${pid}_thorough.txt; then cp $out/check_${pid}_thorough.txt $out/check_$pid.txt; fi
-  fi
-fi
-if [ -z "$hits" ] || { ! grep -q "^VIOLATION" $out/check_$pid.txt && grep -q "no obligation was generated" $out/check_$pid.txt; }; then
-  (cd $V && python3 check.py $pid --tier $tier > $out/check_$pid.txt 2>$out/check_$pid.err; echo "exit=$? (tier $tier, full check; native sweep flagged nothing the restricted runs could decide)" >> $out/check_$pid.txt)
-fi
-dif [ -n "$hits" ]; then
-  (cd $V && VERIF_ONLY="$hits" python3 check.py $pid --tier $tier > $out/check_$pid.txt 2>$out/check_$pid.err; echo "exit=$? (tier $tier, restricted to the harnesses the native sweep flagged: $hits)" >> $out/check_$pid.txt)
-  if ! grep -q "^VIOLATION" $out/check_$pid.txt && [ "$tier" = quick ]; then
-    # the flagged harnesses may belong to the thorough tier only (larger bounds, slow ones)
-    (cd $V && VERIF_ONLY="$hits" python3 check.py $pid --tier thorough > $out/check_${pid}_thorough.txt 2>$out/check_${pid}_thorough.err; echo "exit=$? (tier thorough, restricted to the harnesses the native sweep flagged: $hits)" >> $out/check_${pid}_thorough.txt)
-    if grep -q "^VIOLATION" $out/check_${pid}_thorough.txt; then cp $out/check_${pid}_thorough.txt $out/check_$pid.txt; fi
-  fi
-fi
-if [ -z "$hits" ] || { ! grep -q "^VIOLATION" $out/check_$pid.txt && grep -q "no obligation was generated" $out/check_$pid.txt; }; then
-  (cd $V && python3 check.py $pid --tier $tier > $out/check_$pid.txt 2>$out/check_$pid.err; echo "exit=$? (tier $tier, full check; native sweep flagged nothing the restricted runs could decide)" >> $out/check_$pid.txt)
-fi
-/if [ -n "$hits" ]; then
-  (cd $V && VERIF_ONLY="$hits" python3 check.py $pid --tier $tier > $out/check_$pid.txt 2>$out/check_$pid.err; echo "exit=$? (tier $tier, restricted to the harnesses the native sweep flagged: $hits)" >> $out/check_$pid.txt)
-  if ! grep -q "^VIOLATION" $out/check_$pid.txt && [ "$tier" = quick ]; then
-    # the flagged harnesses may belong to the thorough tier only (larger bounds, slow ones)
-    (cd $V && VERIF_ONLY="$hits" python3 check.py $pid --tier thorough > $out/check_${pid}_thorough.txt 2>$out/check_${pid}_thorough.err; echo "exit=$? (tier thorough, restricted to the harnesses the native sweep flagged: $hits)" >> $out/check_${pid}_thorough.txt)
-    if grep -q "^VIOLATION" $out/check_${pid}_thorough.txt; then cp $out/check_${pid}_thorough.txt $out/check_$pid.txt; fi
-  fi
-fi
-if [ -z "$hits" ] || { ! grep -q "^VIOLATION" $out/check_$pid.txt && grep -q "no obligation was generated" $out/check_$pid.txt; }; then
-  (cd $V && python3 check.py $pid --tier $tier > $out/check_$pid.txt 2>$out/check_$pid.err; echo "exit=$? (tier $tier, full check; native sweep flagged nothing the restricted runs could decide)" >> $out/check_$pid.txt)
-fi
-$if [ -n "$hits" ]; then
-  (cd $V && VERIF_ONLY="$hits" python3 check.py $pid --tier $tier > $out/check_$pid.txt 2>$out/check_$pid.err; echo "exit=$? (tier $tier, restricted to the harnesses the native sweep flagged: $hits)" >> $out/check_$pid.txt)
-  if ! grep -q "^VIOLATION" $out/check_$pid.txt && [ "$tier" = quick ]; then
-    # the flagged harnesses may belong to the thorough tier only (larger bounds, slow ones)
-    (cd $V && VERIF_ONLY="$hits" python3 check.py $pid --tier thorough > $out/check_${pid}_thorough.txt 2>$out/check_${pid}_thorough.err; echo "exit=$? (tier thorough, restricted to the harnesses the native sweep flagged: $hits)" >> $out/check_${pid}_thorough.txt)
-    if grep -q "^VIOLATION" $out/check_${pid}_thorough.txt; then cp $out/check_${pid}_thorough.txt $out/check_$pid.txt; fi
-  fi
-fi
-if [ -z "$hits" ] || { ! grep -q "^VIOLATION" $out/check_$pid.txt && grep -q "no obligation was generated" $out/check_$pid.txt; }; then
-  (cd $V && python3 check.py $pid --tier $tier > $out/check_$pid.txt 2>$out/check_$pid.err; echo "exit=$? (tier $tier, full check; native sweep flagged nothing the restricted runs could decide)" >> $out/check_$pid.txt)
-fi
-nif [ -n "$hits" ]; then
-  (cd $V && VERIF_ONLY="$hits" python3 check.py $pid --tier $tier > $out/check_$pid.txt 2>$out/check_$pid.err; echo "exit=$? (tier $tier, restricted to the harnesses the native sweep flagged: $hits)" >> $out/check_$pid.txt)
-  if ! grep -q "^VIOLATION" $out/check_$pid.txt && [ "$tier" = quick ]; then
-    # the flagged harnesses may belong to the thorough tier only (larger bounds, slow ones)
-    (cd $V && VERIF_ONLY="$hits" python3 check.py $pid --tier thorough > $out/check_${pid}_thorough.txt 2>$out/check_${pid}_thorough.err; echo "exit=$? (tier thorough, restricted to the harnesses the native sweep flagged: $hits)" >> $out/check_${pid}_thorough.txt)
-    if grep -q "^VIOLATION" $out/check_${pid}_thorough.txt; then cp $out/check_${pid}_thorough.txt $out/check_$pid.txt; fi
-  fi
-fi
-if [ -z "$hits" ] || { ! grep -q "^VIOLATION" $out/check_$pid.txt && grep -q "no obligation was generated" $out/check_$pid.txt; }; then
-  (cd $V && python3 check.py $pid --tier $tier > $out/check_$pid.txt 2>$out/check_$pid.err; echo "exit=$? (tier $tier, full check; native sweep flagged nothing the restricted runs could decide)" >> $out/check_$pid.txt)
-fi
-aif [ -n "$hits" ]; then
-  (cd $V && VERIF_ONLY="$hits" python3 check.py $pid --tier $tier > $out/check_$pid.txt 2>$out/check_$pid.err; echo "exit=$? (tier $tier, restricted to the harnesses the native sweep flagged: $hits)" >> $out/check_$pid.txt)
-  if ! grep -q "^VIOLATION" $out/check_$pid.txt && [ "$tier" = quick ]; then
-    # the flagged harnesses may belong to the thorough tier only (larger bounds, slow ones)
-    (cd $V && VERIF_ONLY="$hits" python3 check.py $pid --tier thorough > $out/check_${pid}_thorough.txt 2>$out/check_${pid}_thorough.err; echo "exit=$? (tier thorough, restricted to the harnesses the native sweep flagged: $hits)" >> $out/check_${pid}_thorough.txt)
-    if grep -q "^VIOLATION" $out/check_${pid}_thorough.txt; then cp $out/check_${pid}_thorough.txt $out/check_$pid.txt; fi
-  fi
-fi
-if [ -z "$hits" ] || { ! grep -q "^VIOLATION" $out/check_$pid.txt && grep -q "no obligation was generated" $out/check_$pid.txt; }; then
-  (cd $V && python3 check.py $pid --tier $tier > $out/check_$pid.txt 2>$out/check_$pid.err; echo "exit=$? (tier $tier, full check; native sweep flagged nothing the restricted runs could decide)" >> $out/check_$pid.txt)
-fi
-mif [ -n "$hits" ]; then
-  (cd $V && VERIF_ONLY="$hits" python3 check.py $pid --tier $tier > $out/check_$pid.txt 2>$out/check_$pid.err; echo "exit=$? (tier $tier, restricted to the harnesses the native sweep flagged: $hits)" >> $out/check_$pid.txt)
-  if ! grep -q "^VIOLATION" $out/check_$pid.txt && [ "$tier" = quick ]; then
-    # the flagged harnesses may belong to the thorough tier only (larger bounds, slow ones)
-    (cd $V && VERIF_ONLY="$hits" python3 check.py $pid --tier thorough > $out/check_${pid}_thorough.txt 2>$out/check_${pid}_thorough.err; echo "exit=$? (tier thorough, restricted to the harnesses the native sweep flagged: $hits)" >> $out/check_${pid}_thorough.txt)
-    if grep -q "^VIOLATION" $out/check_${pid}_thorough.txt; then cp $out/check_${pid}_thorough.txt $out/check_$pid.txt; fi
-  fi
-fi
-if [ -z "$hits" ] || { ! grep -q "^VIOLATION" $out/check_$pid.txt && grep -q "no obligation was generated" $out/check_$pid.txt; }; then
-  (cd $V && python3 check.py $pid --tier $tier > $out/check_$pid.txt 2>$out/check_$pid.err; echo "exit=$? (tier $tier, full check; native sweep flagged nothing the restricted runs could decide)" >> $out/check_$pid.txt)
-fi
-eif [ -n "$hits" ]; then
-  (cd $V && VERIF_ONLY="$hits" python3 check.py $pid --tier $tier > $out/check_$pid.txt 2>$out/check_$pid.err; echo "exit=$? (tier $tier, restricted to the harnesses the native sweep flagged: $hits)" >> $out/check_$pid.txt)
-  if ! grep -q "^VIOLATION" $out/check_$pid.txt && [ "$tier" = quick ]; then
-    # the flagged harnesses may belong to the thorough tier only (larger bounds, slow ones)
-    (cd $V && VERIF_ONLY="$hits" python3 check.py $pid --tier thorough > $out/check_${pid}_thorough.txt 2>$out/check_${pid}_thorough.err; echo "exit=$? (tier thorough, restricted to the harnesses the native sweep flagged: $hits)" >> $out/check_${pid}_thorough.txt)
-    if grep -q "^VIOLATION" $out/check_${pid}_thorough.txt; then cp $out/check_${pid}_thorough.txt $out/check_$pid.txt; fi
-  fi
-fi
-if [ -z "$hits" ] || { ! grep -q "^VIOLATION" $out/check_$pid.txt && grep -q "no obligation was generated" $out/check_$pid.txt; }; then
-  (cd $V && python3 check.py $pid --tier $tier > $out/check_$pid.txt 2>$out/check_$pid.err; echo "exit=$? (tier $tier, full check; native sweep flagged nothing the restricted runs could decide)" >> $out/check_$pid.txt)
-fi
-/if [ -n "$hits" ]; then
-  (cd $V && VERIF_ONLY="$hits" python3 check.py $pid --tier $tier > $out/check_$pid.txt 2>$out/check_$pid.err; echo "exit=$? (tier $tier, restricted to the harnesses the native sweep flagged: $hits)" >> $out/check_$pid.txt)
-  if ! grep -q "^VIOLATION" $out/check_$pid.txt && [ "$tier" = quick ]; then
-    # the flagged harnesses may belong to the thorough tier only (larger bounds, slow ones)
-    (cd $V && VERIF_ONLY="$hits" python3 check.py $pid --tier thorough > $out/check_${pid}_thorough.txt 2>$out/check_${pid}_thorough.err; echo "exit=$? (tier thorough, restricted to the harnesses the native sweep flagged: $hits)" >> $out/check_${pid}_thorough.txt)
-    if grep -q "^VIOLATION" $out/check_${pid}_thorough.txt; then cp $out/check_${pid}_thorough.txt $out/check_$pid.txt; fi
-  fi
-fi
-if [ -z "$hits" ] || { ! grep -q "^VIOLATION" $out/check_$pid.txt && grep -q "no obligation was generated" $out/check_$pid.txt; }; then
-  (cd $V && python3 check.py $pid --tier $tier > $out/check_$pid.txt 2>$out/check_$pid.err; echo "exit=$? (tier $tier, full check; native sweep flagged nothing the restricted runs could decide)" >> $out/check_$pid.txt)
-fi
-pif [ -n "$hits" ]; then
-  (cd $V && VERIF_ONLY="$hits" python3 check.py $pid --tier $tier > $out/check_$pid.txt 2>$out/check_$pid.err; echo "exit=$? (tier $tier, restricted to the harnesses the native sweep flagged: $hits)" >> $out/check_$pid.txt)
-  if ! grep -q "^VIOLATION" $out/check_$pid.txt && [ "$tier" = quick ]; then
-    # the flagged harnesses may belong to the thorough tier only (larger bounds, slow ones)
-    (cd $V && VERIF_ONLY="$hits" python3 check.py $pid --tier thorough > $out/check_${pid}_thorough.txt 2>$out/check_${pid}_thorough.err; echo "exit=$? (tier thorough, restricted to the harnesses the native sweep flagged: $hits)" >> $out/check_${pid}_thorough.txt)
-    if grep -q "^VIOLATION" $out/check_${pid}_thorough.txt; then cp $out/check_${pid}_thorough.txt $out/check_$pid.txt; fi
-  fi
-fi
-if [ -z "$hits" ] || { ! grep -q "^VIOLATION" $out/check_$pid.txt && grep -q "no obligation was generated" $out/check_$pid.txt; }; then
-  (cd $V && python3 check.py $pid --tier $tier > $out/check_$pid.txt 2>$out/check_$pid.err; echo "exit=$? (tier $tier, full check; native sweep flagged nothing the restricted runs could decide)" >> $out/check_$pid.txt)
-fi
-aif [ -n "$hits" ]; then
-  (cd $V && VERIF_ONLY="$hits" python3 check.py $pid --tier $tier > $out/check_$pid.txt 2>$out/check_$pid.err; echo "exit=$? (tier $tier, restricted to the harnesses the native sweep flagged: $hits)" >> $out/check_$pid.txt)
-  if ! grep -q "^VIOLATION" $out/check_$pid.txt && [ "$tier" = quick ]; then
-    # the flagged harnesses may belong to the thorough tier only (larger bounds, slow ones)
-    (cd $V && VERIF_ONLY="$hits" python3 check.py $pid --tier thorough > $out/check_${pid}_thorough.txt 2>$out/check_${pid}_thorough.err; echo "exit=$? (tier thorough, restricted to the harnesses the native sweep flagged: $hits)" >> $out/check_${pid}_thorough.txt)
-    if grep -q "^VIOLATION" $out/check_${pid}_thorough.txt; then cp $out/check_${pid}_thorough.txt $out/check_$pid.txt; fi
-  fi
-fi
-if [ -z "$hits" ] || { ! grep -q "^VIOLATION" $out/check_$pid.txt && grep -q "no obligation was generated" $out/check_$pid.txt; }; then
-  (cd $V && python3 check.py $pid --tier $tier > $out/check_$pid.txt 2>$out/check_$pid.err; echo "exit=$? (tier $tier, full check; native sweep flagged nothing the restricted runs could decide)" >> $out/check_$pid.txt)
-fi
-tif [ -n "$hits" ]; then
-  (cd $V && VERIF_ONLY="$hits" python3 check.py $pid --tier $tier > $out/check_$pid.txt 2>$out/check_$pid.err; echo "exit=$? (tier $tier, restricted to the harnesses the native sweep flagged: $hits)" >> $out/check_$pid.txt)
-  if ! grep -q "^VIOLATION" $out/check_$pid.txt && [ "$tier" = quick ]; then
-    # the flagged harnesses may belong to the thorough tier only (larger bounds, slow ones)
-    (cd $V && VERIF_ONLY="$hits" python3 check.py $pid --tier thorough > $out/check_${pid}_thorough.txt 2>$out/check_${pid}_thorough.err; echo "exit=$? (tier thorough, restricted to the harnesses the native sweep flagged: $hits)" >> $out/check_${pid}_thorough.txt)
-    if grep -q "^VIOLATION" $out/check_${pid}_thorough.txt; then cp $out/check_${pid}_thorough.txt $out/check_$pid.txt; fi
-  fi
-fi
-if [ -z "$hits" ] || { ! grep -q "^VIOLATION" $out/check_$pid.txt && grep -q "no obligation was generated" $out/check_$pid.txt; }; then
-  (cd $V && python3 check.py $pid --tier $tier > $out/check_$pid.txt 2>$out/check_$pid.err; echo "exit=$? (tier $tier, full check; native sweep flagged nothing the restricted runs could decide)" >> $out/check_$pid.txt)
-fi
-cif [ -n "$hits" ]; then
-  (cd $V && VERIF_ONLY="$hits" python3 check.py $pid --tier $tier > $out/check_$pid.txt 2>$out/check_$pid.err; echo "exit=$? (tier $tier, restricted to the harnesses the native sweep flagged: $hits)" >> $out/check_$pid.txt)
-  if ! grep -q "^VIOLATION" $out/check_$pid.txt && [ "$tier" = quick ]; then
-    # the flagged harnesses may belong to the thorough tier only (larger bounds, slow ones)
-    (cd $V && VERIF_ONLY="$hits" python3 check.py $pid --tier thorough > $out/check_${pid}_thorough.txt 2>$out/check_${pid}_thorough.err; echo "exit=$? (tier thorough, restricted to the harnesses the native sweep flagged: $hits)" >> $out/check_${pid}_thorough.txt)
-    if grep -q "^VIOLATION" $out/check_${pid}_thorough.txt; then cp $out/check_${pid}_thorough.txt $out/check_$pid.txt; fi
-  fi
-fi
-if [ -z "$hits" ] || { ! grep -q "^VIOLATION" $out/check_$pid.txt && grep -q "no obligation was generated" $out/check_$pid.txt; }; then
-  (cd $V && python3 check.py $pid --tier $tier > $out/check_$pid.txt 2>$out/check_$pid.err; echo "exit=$? (tier $tier, full check; native sweep flagged nothing the restricted runs could decide)" >> $out/check_$pid.txt)
-fi
-hif [ -n "$hits" ]; then
-  (cd $V && VERIF_ONLY="$hits" python3 check.py $pid --tier $tier > $out/check_$pid.txt 2>$out/check_$pid.err; echo "exit=$? (tier $tier, restricted to the harnesses the native sweep flagged: $hits)" >> $out/check_$pid.txt)
-  if ! grep -q "^VIOLATION" $out/check_$pid.txt && [ "$tier" = quick ]; then
-    # the flagged harnesses may belong to the thorough tier only (larger bounds, slow ones)
-    (cd $V && VERIF_ONLY="$hits" python3 check.py $pid --tier thorough > $out/check_${pid}_thorough.txt 2>$out/check_${pid}_thorough.err; echo "exit=$? (tier thorough, restricted to the harnesses the native sweep flagged: $hits)" >> $out/check_${pid}_thorough.txt)
-    if grep -q "^VIOLATION" $out/check_${pid}_thorough.txt; then cp $out/check_${pid}_thorough.txt $out/check_$pid.txt; fi
-  fi
-fi
-if [ -z "$hits" ] || { ! grep -q "^VIOLATION" $out/check_$pid.txt && grep -q "no obligation was generated" $out/check_$pid.txt; }; then
-  (cd $V && python3 check.py $pid --tier $tier > $out/check_$pid.txt 2>$out/check_$pid.err; echo "exit=$? (tier $tier, full check; native sweep flagged nothing the restricted runs could decide)" >> $out/check_$pid.txt)
-fi
-.if [ -n "$hits" ]; then
-  (cd $V && VERIF_ONLY="$hits" python3 check.py $pid --tier $tier > $out/check_$pid.txt 2>$out/check_$pid.err; echo "exit=$? (tier $tier, restricted to the harnesses the native sweep flagged: $hits)" >> $out/check_$pid.txt)
-  if ! grep -q "^VIOLATION" $out/check_$pid.txt && [ "$tier" = quick ]; then
-    # the flagged harnesses may belong to the thorough tier only (larger bounds, slow ones)
-    (cd $V && VERIF_ONLY="$hits" python3 check.py $pid --tier thorough > $out/check_${pid}_thorough.txt 2>$out/check_${pid}_thorough.err; echo "exit=$? (tier thorough, restricted to the harnesses the native sweep flagged: $hits)" >> $out/check_${pid}_thorough.txt)
-    if grep -q "^VIOLATION" $out/check_${pid}_thorough.txt; then cp $out/check_${pid}_thorough.txt $out/check_$pid.txt; fi
-  fi
-fi
-if [ -z "$hits" ] || { ! grep -q "^VIOLATION" $out/check_$pid.txt && grep -q "no obligation was generated" $out/check_$pid.txt; }; then
-  (cd $V && python3 check.py $pid --tier $tier > $out/check_$pid.txt 2>$out/check_$pid.err; echo "exit=$? (tier $tier, full check; native sweep flagged nothing the restricted runs could decide)" >> $out/check_$pid.txt)
-fi
-dif [ -n "$hits" ]; then
-  (cd $V && VERIF_ONLY="$hits" python3 check.py $pid --tier $tier > $out/check_$pid.txt 2>$out/check_$pid.err; echo "exit=$? (tier $tier, restricted to the harnesses the native sweep flagged: $hits)" >> $out/check_$pid.txt)
-  if ! grep -q "^VIOLATION" $out/check_$pid.txt && [ "$tier" = quick ]; then
-    # the flagged harnesses may belong to the thorough tier only (larger bounds, slow ones)
-    (cd $V && VERIF_ONLY="$hits" python3 check.py $pid --tier thorough > $out/check_${pid}_thorough.txt 2>$out/check_${pid}_thorough.err; echo "exit=$? (tier thorough, restricted to the harnesses the native sweep flagged: $hits)" >> $out/check_${pid}_thorough.txt)
-    if grep -q "^VIOLATION" $out/check_${pid}_thorough.txt; then cp $out/check_${pid}_thorough.txt $out/check_$pid.txt; fi
-  fi
-fi
-if [ -z "$hits" ] || { ! grep -q "^VIOLATION" $out/check_$pid.txt && grep -q "no obligation was generated" $out/check_$pid.txt; }; then
-  (cd $V && python3 check.py $pid --tier $tier > $out/check_$pid.txt 2>$out/check_$pid.err; echo "exit=$? (tier $tier, full check; native sweep flagged nothing the restricted runs could decide)" >> $out/check_$pid.txt)
-fi
-iif [ -n "$hits" ]; then
-  (cd $V && VERIF_ONLY="$hits" python3 check.py $pid --tier $tier > $out/check_$pid.txt 2>$out/check_$pid.err; echo "exit=$? (tier $tier, restricted to the harnesses the native sweep flagged: $hits)" >> $out/check_$pid.txt)
-  if ! grep -q "^VIOLATION" $out/check_$pid.txt && [ "$tier" = quick ]; then
-    # the flagged harnesses may belong to the thorough tier only (larger bounds, slow ones)
-    (cd $V && VERIF_ONLY="$hits" python3 check.py $pid --tier thorough > $out/check_${pid}_thorough.txt 2>$out/check_${pid}_thorough.err; echo "exit=$? (tier thorough, restricted to the harnesses the native sweep flagged: $hits)" >> $out/check_${pid}_thorough.txt)
-    if grep -q "^VIOLATION" $out/check_${pid}_thorough.txt; then cp $out/check_${pid}_thorough.txt $out/check_$pid.txt; fi
-  fi
-fi
-if [ -z "$hits" ] || { ! grep -q "^VIOLATION" $out/check_$pid.txt && grep -q "no obligation was generated" $out/check_$pid.txt; }; then
-  (cd $V && python3 check.py $pid --tier $tier > $out/check_$pid.txt 2>$out/check_$pid.err; echo "exit=$? (tier $tier, full check; native sweep flagged nothing the restricted runs could decide)" >> $out/check_$pid.txt)
-fi
-fif [ -n "$hits" ]; then
-  (cd $V && VERIF_ONLY="$hits" python3 check.py $pid --tier $tier > $out/check_$pid.txt 2>$out/check_$pid.err; echo "exit=$? (tier $tier, restricted to the harnesses the native sweep flagged: $hits)" >> $out/check_$pid.txt)
-  if ! grep -q "^VIOLATION" $out/check_$pid.txt && [ "$tier" = quick ]; then
-    # the flagged harnesses may belong to the thorough tier only (larger bounds, slow ones)
-    (cd $V && VERIF_ONLY="$hits" python3 check.py $pid --tier thorough > $out/check_${pid}_thorough.txt 2>$out/check_${pid}_thorough.err; echo "exit=$? (tier thorough, restricted to the harnesses the native sweep flagged: $hits)" >> $out/check_${pid}_thorough.txt)
-    if grep -q "^VIOLATION" $out/check_${pid}_thorough.txt; then cp $out/check_${pid}_thorough.txt $out/check_$pid.txt; fi
-  fi
-fi
-if [ -z "$hits" ] || { ! grep -q "^VIOLATION" $out/check_$pid.txt && grep -q "no obligation was generated" $out/check_$pid.txt; }; then
-  (cd $V && python3 check.py $pid --tier $tier > $out/check_$pid.txt 2>$out/check_$pid.err; echo "exit=$? (tier $tier, full check; native sweep flagged nothing the restricted runs could decide)" >> $out/check_$pid.txt)
-fi
-fif [ -n "$hits" ]; then
-  (cd $V && VERIF_ONLY="$hits" python3 check.py $pid --tier $tier > $out/check_$pid.txt 2>$out/check_$pid.err; echo "exit=$? (tier $tier, restricted to the harnesses the native sweep flagged: $hits)" >> $out/check_$pid.txt)
-  if ! grep -q "^VIOLATION" $out/check_$pid.txt && [ "$tier" = quick ]; then
-    # the flagged harnesses may belong to the thorough tier only (larger bounds, slow ones)
-    (cd $V && VERIF_ONLY="$hits" python3 check.py $pid --tier thorough > $out/check_${pid}_thorough.txt 2>$out/check_${pid}_thorough.err; echo "exit=$? (tier thorough, restricted to the harnesses the native sweep flagged: $hits)" >> $out/check_${pid}_thorough.txt)
-    if grep -q "^VIOLATION" $out/check_${pid}_thorough.txt; then cp $out/check_${pid}_thorough.txt $out/check_$pid.txt; fi
-  fi
-fi
-if [ -z "$hits" ] || { ! grep -q "^VIOLATION" $out/check_$pid.txt && grep -q "no obligation was generated" $out/check_$pid.txt; }; then
-  (cd $V && python3 check.py $pid --tier $tier > $out/check_$pid.txt 2>$out/check_$pid.err; echo "exit=$? (tier $tier, full check; native sweep flagged nothing the restricted runs could decide)" >> $out/check_$pid.txt)
-fi
- if [ -n "$hits" ]; then
-  (cd $V && VERIF_ONLY="$hits" python3 check.py $pid --tier $tier > $out/check_$pid.txt 2>$out/check_$pid.err; echo "exit=$? (tier $tier, restricted to the harnesses the native sweep flagged: $hits)" >> $out/check_$pid.txt)
-  if ! grep -q "^VIOLATION" $out/check_$pid.txt && [ "$tier" = quick ]; then
-    # the flagged harnesses may belong to the thorough tier only (larger bounds, slow ones)
-    (cd $V && VERIF_ONLY="$hits" python3 check.py $pid --tier thorough > $out/check_${pid}_thorough.txt 2>$out/check_${pid}_thorough.err; echo "exit=$? (tier thorough, restricted to the harnesses the native sweep flagged: $hits)" >> $out/check_${pid}_thorough.txt)
-    if grep -q "^VIOLATION" $out/check_${pid}_thorough.txt; then cp $out/check_${pid}_thorough.txt $out/check_$pid.txt; fi
-  fi
-fi
-if [ -z "$hits" ] || { ! grep -q "^VIOLATION" $out/check_$pid.txt && grep -q "no obligation was generated" $out/check_$pid.txt; }; then
-  (cd $V && python3 check.py $pid --tier $tier > $out/check_$pid.txt 2>$out/check_$pid.err; echo "exit=$? (tier $tier, full check; native sweep flagged nothing the restricted runs could decide)" >> $out/check_$pid.txt)
-fi
-|if [ -n "$hits" ]; then
-  (cd $V && VERIF_ONLY="$hits" python3 check.py $pid --tier $tier > $out/check_$pid.txt 2>$out/check_$pid.err; echo "exit=$? (tier $tier, restricted to the harnesses the native sweep flagged: $hits)" >> $out/check_$pid.txt)
-  if ! grep -q "^VIOLATION" $out/check_$pid.txt && [ "$tier" = quick ]; then
-    # the flagged harnesses may belong to the thorough tier only (larger bounds, slow ones)
-    (cd $V && VERIF_ONLY="$hits" python3 check.py $pid --tier thorough > $out/check_${pid}_thorough.txt 2>$out/check_${pid}_thorough.err; echo "exit=$? (tier thorough, restricted to the harnesses the native sweep flagged: $hits)" >> $out/check_${pid}_thorough.txt)
-    if grep -q "^VIOLATION" $out/check_${pid}_thorough.txt; then cp $out/check_${pid}_thorough.txt $out/check_$pid.txt; fi
-  fi
-fi
-if [ -z "$hits" ] || { ! grep -q "^VIOLATION" $out/check_$pid.txt && grep -q "no obligation was generated" $out/check_$pid.txt; }; then
-  (cd $V && python3 check.py $pid --tier $tier > $out/check_$pid.txt 2>$out/check_$pid.err; echo "exit=$? (tier $tier, full check; native sweep flagged nothing the restricted runs could decide)" >> $out/check_$pid.txt)
-fi
-|if [ -n "$hits" ]; then
-  (cd $V && VERIF_ONLY="$hits" python3 check.py $pid --tier $tier > $out/check_$pid.txt 2>$out/check_$pid.err; echo "exit=$? (tier $tier, restricted to the harnesses the native sweep flagged: $hits)" >> $out/check_$pid.txt)
-  if ! grep -q "^VIOLATION" $out/check_$pid.txt && [ "$tier" = quick ]; then
-    # the flagged harnesses may belong to the thorough tier only (larger bounds, slow ones)
-    (cd $V && VERIF_ONLY="$hits" python3 check.py $pid --tier thorough > $out/check_${pid}_thorough.txt 2>$out/check_${pid}_thorough.err; echo "exit=$? (tier thorough, restricted to the harnesses the native sweep flagged: $hits)" >> $out/check_${pid}_thorough.txt)
-    if grep -q "^VIOLATION" $out/check_${pid}_thorough.txt; then cp $out/check_${pid}_thorough.txt $out/check_$pid.txt; fi
-  fi
-fi
-if [ -z "$hits" ] || { ! grep -q "^VIOLATION" $out/check_$pid.txt && grep -q "no obligation was generated" $out/check_$pid.txt; }; then
-  (cd $V && python3 check.py $pid --tier $tier > $out/check_$pid.txt 2>$out/check_$pid.err; echo "exit=$? (tier $tier, full check; native sweep flagged nothing the restricted runs could decide)" >> $out/check_$pid.txt)
-fi
- if [ -n "$hits" ]; then
-  (cd $V && VERIF_ONLY="$hits" python3 check.py $pid --tier $tier > $out/check_$pid.txt 2>$out/check_$pid.err; echo "exit=$? (tier $tier, restricted to the harnesses the native sweep flagged: $hits)" >> $out/check_$pid.txt)
-  if ! grep -q "^VIOLATION" $out/check_$pid.txt && [ "$tier" = quick ]; then
-    # the flagged harnesses may belong to the thorough tier only (larger bounds, slow ones)
-    (cd $V && VERIF_ONLY="$hits" python3 check.py $pid --tier thorough > $out/check_${pid}_thorough.txt 2>$out/check_${pid}_thorough.err; echo "exit=$? (tier thorough, restricted to the harnesses the native sweep flagged: $hits)" >> $out/check_${pid}_thorough.txt)
-    if grep -q "^VIOLATION" $out/check_${pid}_thorough.txt; then cp $out/check_${pid}_thorough.txt $out/check_$pid.txt; fi
-  fi
-fi
-if [ -z "$hits" ] || { ! grep -q "^VIOLATION" $out/check_$pid.txt && grep -q "no obligation was generated" $out/check_$pid.txt; }; then
-  (cd $V && python3 check.py $pid --tier $tier > $out/check_$pid.txt 2>$out/check_$pid.err; echo "exit=$? (tier $tier, full check; native sweep flagged nothing the restricted runs could decide)" >> $out/check_$pid.txt)
-fi
-{if [ -n "$hits" ]; then
-  (cd $V && VERIF_ONLY="$hits" python3 check.py $pid --tier $tier > $out/check_$pid.txt 2>$out/check_$pid.err; echo "exit=$? (tier $tier, restricted to the harnesses the native sweep flagged: $hits)" >> $out/check_$pid.txt)
-  if ! grep -q "^VIOLATION" $out/check_$pid.txt && [ "$tier" = quick ]; then
-    # the flagged harnesses may belong to the thorough tier only (larger bounds, slow ones)
-    (cd $V && VERIF_ONLY="$hits" python3 check.py $pid --tier thorough > $out/check_${pid}_thorough.txt 2>$out/check_${pid}_thorough.err; echo "exit=$? (tier thorough, restricted to the harnesses the native sweep flagged: $hits)" >> $out/check_${pid}_thorough.txt)
-    if grep -q "^VIOLATION" $out/check_${pid}_thorough.txt; then cp $out/check_${pid}_thorough.txt $out/check_$pid.txt; fi
-  fi
-fi
-if [ -z "$hits" ] || { ! grep -q "^VIOLATION" $out/check_$pid.txt && grep -q "no obligation was generated" $out/check_$pid.txt; }; then
-  (cd $V && python3 check.py $pid --tier $tier > $out/check_$pid.txt 2>$out/check_$pid.err; echo "exit=$? (tier $tier, full check; native sweep flagged nothing the restricted runs could decide)" >> $out/check_$pid.txt)
-fi
- if [ -n "$hits" ]; then
-  (cd $V && VERIF_ONLY="$hits" python3 check.py $pid --tier $tier > $out/check_$pid.txt 2>$out/check_$pid.err; echo "exit=$? (tier $tier, restricted to the harnesses the native sweep flagged: $hits)" >> $out/check_$pid.txt)
-  if ! grep -q "^VIOLATION" $out/check_$pid.txt && [ "$tier" = quick ]; then
-    # the flagged harnesses may belong to the thorough tier only (larger bounds, slow ones)
-    (cd $V && VERIF_ONLY="$hits" python3 check.py $pid --tier thorough > $out/check_${pid}_thorough.txt 2>$out/check_${pid}_thorough.err; echo "exit=$? (tier thorough, restricted to the harnesses the native sweep flagged: $hits)" >> $out/check_${pid}_thorough.txt)
-    if grep -q "^VIOLATION" $out/check_${pid}_thorough.txt; then cp $out/check_${pid}_thorough.txt $out/check_$pid.txt; fi
-  fi
-fi
-if [ -z "$hits" ] || { ! grep -q "^VIOLATION" $out/check_$pid.txt && grep -q "no obligation was generated" $out/check_$pid.txt; }; then
-  (cd $V && python3 check.py $pid --tier $tier > $out/check_$pid.txt 2>$out/check_$pid.err; echo "exit=$? (tier $tier, full check; native sweep flagged nothing the restricted runs could decide)" >> $out/check_$pid.txt)
-fi
-eif [ -n "$hits" ]; then
-  (cd $V && VERIF_ONLY="$hits" python3 check.py $pid --tier $tier > $out/check_$pid.txt 2>$out/check_$pid.err; echo "exit=$? (tier $tier, restricted to the harnesses the native sweep flagged: $hits)" >> $out/check_$pid.txt)
-  if ! grep -q "^VIOLATION" $out/check_$pid.txt && [ "$tier" = quick ]; then
-    # the flagged harnesses may belong to the thorough tier only (larger bounds, slow ones)
-    (cd $V && VERIF_ONLY="$hits" python3 check.py $pid --tier thorough > $out/check_${pid}_thorough.txt 2>$out/check_${pid}_thorough.err; echo "exit=$? (tier thorough, restricted to the harnesses the native sweep flagged: $hits)" >> $out/check_${pid}_thorough.txt)
-    if grep -q "^VIOLATION" $out/check_${pid}_thorough.txt; then cp $out/check_${pid}_thorough.txt $out/check_$pid.txt; fi
-  fi
-fi
-if [ -z "$hits" ] || { ! grep -q "^VIOLATION" $out/check_$pid.txt && grep -q "no obligation was generated" $out/check_$pid.txt; }; then
-  (cd $V && python3 check.py $pid --tier $tier > $out/check_$pid.txt 2>$out/check_$pid.err; echo "exit=$? (tier $tier, full check; native sweep flagged nothing the restricted runs could decide)" >> $out/check_$pid.txt)
-fi
-cif [ -n "$hits" ]; then
-  (cd $V && VERIF_ONLY="$hits" python3 check.py $pid --tier $tier > $out/check_$pid.txt 2>$out/check_$pid.err; echo "exit=$? (tier $tier, restricted to the harnesses the native sweep flagged: $hits)" >> $out/check_$pid.txt)
-  if ! grep -q "^VIOLATION" $out/check_$pid.txt && [ "$tier" = quick ]; then
-    # the flagged harnesses may belong to the thorough tier only (larger bounds, slow ones)
-    (cd $V && VERIF_ONLY="$hits" python3 check.py $pid --tier thorough > $out/check_${pid}_thorough.txt 2>$out/check_${pid}_thorough.err; echo "exit=$? (tier thorough, restricted to the harnesses the native sweep flagged: $hits)" >> $out/check_${pid}_thorough.txt)
-    if grep -q "^VIOLATION" $out/check_${pid}_thorough.txt; then cp $out/check_${pid}_thorough.txt $out/check_$pid.txt; fi
-  fi
-fi
-if [ -z "$hits" ] || { ! grep -q "^VIOLATION" $out/check_$pid.txt && grep -q "no obligation was generated" $out/check_$pid.txt; }; then
-  (cd $V && python3 check.py $pid --tier $tier > $out/check_$pid.txt 2>$out/check_$pid.err; echo "exit=$? (tier $tier, full check; native sweep flagged nothing the restricted runs could decide)" >> $out/check_$pid.txt)
-fi
-hif [ -n "$hits" ]; then
-  (cd $V && VERIF_ONLY="$hits" python3 check.py $pid --tier $tier > $out/check_$pid.txt 2>$out/check_$pid.err; echo "exit=$? (tier $tier, restricted to the harnesses the native sweep flagged: $hits)" >> $out/check_$pid.txt)
-  if ! grep -q "^VIOLATION" $out/check_$pid.txt && [ "$tier" = quick ]; then
-    # the flagged harnesses may belong to the thorough tier only (larger bounds, slow ones)
-    (cd $V && VERIF_ONLY="$hits" python3 check.py $pid --tier thorough > $out/check_${pid}_thorough.txt 2>$out/check_${pid}_thorough.err; echo "exit=$? (tier thorough, restricted to the harnesses the native sweep flagged: $hits)" >> $out/check_${pid}_thorough.txt)
-    if grep -q "^VIOLATION" $out/check_${pid}_thorough.txt; then cp $out/check_${pid}_thorough.txt $out/check_$pid.txt; fi
-  fi
-fi
-if [ -z "$hits" ] || { ! grep -q "^VIOLATION" $out/check_$pid.txt && grep -q "no obligation was generated" $out/check_$pid.txt; }; then
-  (cd $V && python3 check.py $pid --tier $tier > $out/check_$pid.txt 2>$out/check_$pid.err; echo "exit=$? (tier $tier, full check; native sweep flagged nothing the restricted runs could decide)" >> $out/check_$pid.txt)
-fi
-oif [ -n "$hits" ]; then
-  (cd $V && VERIF_ONLY="$hits" python3 check.py $pid --tier $tier > $out/check_$pid.txt 2>$out/check_$pid.err; echo "exit=$? (tier $tier, restricted to the harnesses the native sweep flagged: $hits)" >> $out/check_$pid.txt)
-  if ! grep -q "^VIOLATION" $out/check_$pid.txt && [ "$tier" = quick ]; then
-    # the flagged harnesses may belong to the thorough tier only (larger bounds, slow ones)
-    (cd $V && VERIF_ONLY="$hits" python3 check.py $pid --tier thorough > $out/check_${pid}_thorough.txt 2>$out/check_${pid}_thorough.err; echo "exit=$? (tier thorough, restricted to the harnesses the native sweep flagged: $hits)" >> $out/check_${pid}_thorough.txt)
-    if grep -q "^VIOLATION" $out/check_${pid}_thorough.txt; then cp $out/check_${pid}_thorough.txt $out/check_$pid.txt; fi
-  fi
-fi
-if [ -z "$hits" ] || { ! grep -q "^VIOLATION" $out/check_$pid.txt && grep -q "no obligation was generated" $out/check_$pid.txt; }; then
-  (cd $V && python3 check.py $pid --tier $tier > $out/check_$pid.txt 2>$out/check_$pid.err; echo "exit=$? (tier $tier, full check; native sweep flagged nothing the restricted runs could decide)" >> $out/check_$pid.txt)
-fi
- if [ -n "$hits" ]; then
-  (cd $V && VERIF_ONLY="$hits" python3 check.py $pid --tier $tier > $out/check_$pid.txt 2>$out/check_$pid.err; echo "exit=$? (tier $tier, restricted to the harnesses the native sweep flagged: $hits)" >> $out/check_$pid.txt)
-  if ! grep -q "^VIOLATION" $out/check_$pid.txt && [ "$tier" = quick ]; then
-    # the flagged harnesses may belong to the thorough tier only (larger bounds, slow ones)
-    (cd $V && VERIF_ONLY="$hits" python3 check.py $pid --tier thorough > $out/check_${pid}_thorough.txt 2>$out/check_${pid}_thorough.err; echo "exit=$? (tier thorough, restricted to the harnesses the native sweep flagged: $hits)" >> $out/check_${pid}_thorough.txt)
-    if grep -q "^VIOLATION" $out/check_${pid}_thorough.txt; then cp $out/check_${pid}_thorough.txt $out/check_$pid.txt; fi
-  fi
-fi
-if [ -z "$hits" ] || { ! grep -q "^VIOLATION" $out/check_$pid.txt && grep -q "no obligation was generated" $out/check_$pid.txt; }; then
-  (cd $V && python3 check.py $pid --tier $tier > $out/check_$pid.txt 2>$out/check_$pid.err; echo "exit=$? (tier $tier, full check; native sweep flagged nothing the restricted runs could decide)" >> $out/check_$pid.txt)
-fi
-"if [ -n "$hits" ]; then
-  (cd $V && VERIF_ONLY="$hits" python3 check.py $pid --tier $tier > $out/check_$pid.txt 2>$out/check_$pid.err; echo "exit=$? (tier $tier, restricted to the harnesses the native sweep flagged: $hits)" >> $out/check_$pid.txt)
-  if ! grep -q "^VIOLATION" $out/check_$pid.txt && [ "$tier" = quick ]; then
-    # the flagged harnesses may belong to the thorough tier only (larger bounds, slow ones)
-    (cd $V && VERIF_ONLY="$hits" python3 check.py $pid --tier thorough > $out/check_${pid}_thorough.txt 2>$out/check_${pid}_thorough.err; echo "exit=$? (tier thorough, restricted to the harnesses the native sweep flagged: $hits)" >> $out/check_${pid}_thorough.txt)
-    if grep -q "^VIOLATION" $out/check_${pid}_thorough.txt; then cp $out/check_${pid}_thorough.txt $out/check_$pid.txt; fi
-  fi
-fi
-if [ -z "$hits" ] || { ! grep -q "^VIOLATION" $out/check_$pid.txt && grep -q "no obligation was generated" $out/check_$pid.txt; }; then
-  (cd $V && python3 check.py $pid --tier $tier > $out/check_$pid.txt 2>$out/check_$pid.err; echo "exit=$? (tier $tier, full check; native sweep flagged nothing the restricted runs could decide)" >> $out/check_$pid.txt)
-fi
-pif [ -n "$hits" ]; then
-  (cd $V && VERIF_ONLY="$hits" python3 check.py $pid --tier $tier > $out/check_$pid.txt 2>$out/check_$pid.err; echo "exit=$? (tier $tier, restricted to the harnesses the native sweep flagged: $hits)" >> $out/check_$pid.txt)
-  if ! grep -q "^VIOLATION" $out/check_$pid.txt && [ "$tier" = quick ]; then
-    # the flagged harnesses may belong to the thorough tier only (larger bounds, slow ones)
-    (cd $V && VERIF_ONLY="$hits" python3 check.py $pid --tier thorough > $out/check_${pid}_thorough.txt 2>$out/check_${pid}_thorough.err; echo "exit=$? (tier thorough, restricted to the harnesses the native sweep flagged: $hits)" >> $out/check_${pid}_thorough.txt)
-    if grep -q "^VIOLATION" $out/check_${pid}_thorough.txt; then cp $out/check_${pid}_thorough.txt $out/check_$pid.txt; fi
-  fi
-fi
-if [ -z "$hits" ] || { ! grep -q "^VIOLATION" $out/check_$pid.txt && grep -q "no obligation was generated" $out/check_$pid.txt; }; then
-  (cd $V && python3 check.py $pid --tier $tier > $out/check_$pid.txt 2>$out/check_$pid.err; echo "exit=$? (tier $tier, full check; native sweep flagged nothing the restricted runs could decide)" >> $out/check_$pid.txt)
-fi
-aif [ -n "$hits" ]; then
-  (cd $V && VERIF_ONLY="$hits" python3 check.py $pid --tier $tier > $out/check_$pid.txt 2>$out/check_$pid.err; echo "exit=$? (tier $tier, restricted to the harnesses the native sweep flagged: $hits)" >> $out/check_$pid.txt)
-  if ! grep -q "^VIOLATION" $out/check_$pid.txt && [ "$tier" = quick ]; then
-    # the flagged harnesses may belong to the thorough tier only (larger bounds, slow ones)
-    (cd $V && VERIF_ONLY="$hits" python3 check.py $pid --tier thorough > $out/check_${pid}_thorough.txt 2>$out/check_${pid}_thorough.err; echo "exit=$? (tier thorough, restricted to the harnesses the native sweep flagged: $hits)" >> $out/check_${pid}_thorough.txt)
-    if grep -q "^VIOLATION" $out/check_${pid}_thorough.txt; then cp $out/check_${pid}_thorough.txt $out/check_$pid.txt; fi
-  fi
-fi
-if [ -z "$hits" ] || { ! grep -q "^VIOLATION" $out/check_$pid.txt && grep -q "no obligation was generated" $out/check_$pid.txt; }; then
-  (cd $V && python3 check.py $pid --tier $tier > $out/check_$pid.txt 2>$out/check_$pid.err; echo "exit=$? (tier $tier, full check; native sweep flagged nothing the restricted runs could decide)" >> $out/check_$pid.txt)
-fi
-tif [ -n "$hits" ]; then
-  (cd $V && VERIF_ONLY="$hits" python3 check.py $pid --tier $tier > $out/check_$pid.txt 2>$out/check_$pid.err; echo "exit=$? (tier $tier, restricted to the harnesses the native sweep flagged: $hits)" >> $out/check_$pid.txt)
-  if ! grep -q "^VIOLATION" $out/check_$pid.txt && [ "$tier" = quick ]; then
-    # the flagged harnesses may belong to the thorough tier only (larger bounds, slow ones)
-    (cd $V && VERIF_ONLY="$hits" python3 check.py $pid --tier thorough > $out/check_${pid}_thorough.txt 2>$out/check_${pid}_thorough.err; echo "exit=$? (tier thorough, restricted to the harnesses the native sweep flagged: $hits)" >> $out/check_${pid}_thorough.txt)
-    if grep -q "^VIOLATION" $out/check_${pid}_thorough.txt; then cp $out/check_${pid}_thorough.txt $out/check_$pid.txt; fi
-  fi
-fi
-if [ -z "$hits" ] || { ! grep -q "^VIOLATION" $out/check_$pid.txt && grep -q "no obligation was generated" $out/check_$pid.txt; }; then
-  (cd $V && python3 check.py $pid --tier $tier > $out/check_$pid.txt 2>$out/check_$pid.err; echo "exit=$? (tier $tier, full check; native sweep flagged nothing the restricted runs could decide)" >> $out/check_$pid.txt)
-fi
-cif [ -n "$hits" ]; then
-  (cd $V && VERIF_ONLY="$hits" python3 check.py $pid --tier $tier > $out/check_$pid.txt 2>$out/check_$pid.err; echo "exit=$? (tier $tier, restricted to the harnesses the native sweep flagged: $hits)" >> $out/check_$pid.txt)
-  if ! grep -q "^VIOLATION" $out/check_$pid.txt && [ "$tier" = quick ]; then
-    # the flagged harnesses may belong to the thorough tier only (larger bounds, slow ones)
-    (cd $V && VERIF_ONLY="$hits" python3 check.py $pid --tier thorough > $out/check_${pid}_thorough.txt 2>$out/check_${pid}_thorough.err; echo "exit=$? (tier thorough, restricted to the harnesses the native sweep flagged: $hits)" >> $out/check_${pid}_thorough.txt)
-    if grep -q "^VIOLATION" $out/check_${pid}_thorough.txt; then cp $out/check_${pid}_thorough.txt $out/check_$pid.txt; fi
-  fi
-fi
-if [ -z "$hits" ] || { ! grep -q "^VIOLATION" $out/check_$pid.txt && grep -q "no obligation was generated" $out/check_$pid.txt; }; then
-  (cd $V && python3 check.py $pid --tier $tier > $out/check_$pid.txt 2>$out/check_$pid.err; echo "exit=$? (tier $tier, full check; native sweep flagged nothing the restricted runs could decide)" >> $out/check_$pid.txt)
-fi
-hif [ -n "$hits" ]; then
-  (cd $V && VERIF_ONLY="$hits" python3 check.py $pid --tier $tier > $out/check_$pid.txt 2>$out/check_$pid.err; echo "exit=$? (tier $tier, restricted to the harnesses the native sweep flagged: $hits)" >> $out/check_$pid.txt)
-  if ! grep -q "^VIOLATION" $out/check_$pid.txt && [ "$tier" = quick ]; then
-    # the flagged harnesses may belong to the thorough tier only (larger bounds, slow ones)
-    (cd $V && VERIF_ONLY="$hits" python3 check.py $pid --tier thorough > $out/check_${pid}_thorough.txt 2>$out/check_${pid}_thorough.err; echo "exit=$? (tier thorough, restricted to the harnesses the native sweep flagged: $hits)" >> $out/check_${pid}_thorough.txt)
-    if grep -q "^VIOLATION" $out/check_${pid}_thorough.txt; then cp $out/check_${pid}_thorough.txt $out/check_$pid.txt; fi
-  fi
-fi
-if [ -z "$hits" ] || { ! grep -q "^VIOLATION" $out/check_$pid.txt && grep -q "no obligation was generated" $out/check_$pid.txt; }; then
-  (cd $V && python3 check.py $pid --tier $tier > $out/check_$pid.txt 2>$out/check_$pid.err; echo "exit=$? (tier $tier, full check; native sweep flagged nothing the restricted runs could decide)" >> $out/check_$pid.txt)
-fi
- if [ -n "$hits" ]; then
-  (cd $V && VERIF_ONLY="$hits" python3 check.py $pid --tier $tier > $out/check_$pid.txt 2>$out/check_$pid.err; echo "exit=$? (tier $tier, restricted to the harnesses the native sweep flagged: $hits)" >> $out/check_$pid.txt)
-  if ! grep -q "^VIOLATION" $out/check_$pid.txt && [ "$tier" = quick ]; then
-    # the flagged harnesses may belong to the thorough tier only (larger bounds, slow ones)
-    (cd $V && VERIF_ONLY="$hits" python3 check.py $pid --tier thorough > $out/check_${pid}_thorough.txt 2>$out/check_${pid}_thorough.err; echo "exit=$? (tier thorough, restricted to the harnesses the native sweep flagged: $hits)" >> $out/check_${pid}_thorough.txt)
-    if grep -q "^VIOLATION" $out/check_${pid}_thorough.txt; then cp $out/check_${pid}_thorough.txt $out/check_$pid.txt; fi
-  fi
-fi
-if [ -z "$hits" ] || { ! grep -q "^VIOLATION" $out/check_$pid.txt && grep -q "no obligation was generated" $out/check_$pid.txt; }; then
-  (cd $V && python3 check.py $pid --tier $tier > $out/check_$pid.txt 2>$out/check_$pid.err; echo "exit=$? (tier $tier, full check; native sweep flagged nothing the restricted runs could decide)" >> $out/check_$pid.txt)
-fi
-dif [ -n "$hits" ]; then
-  (cd $V && VERIF_ONLY="$hits" python3 check.py $pid --tier $tier > $out/check_$pid.txt 2>$out/check_$pid.err; echo "exit=$? (tier $tier, restricted to the harnesses the native sweep flagged: $hits)" >> $out/check_$pid.txt)
-  if ! grep -q "^VIOLATION" $out/check_$pid.txt && [ "$tier" = quick ]; then
-    # the flagged harnesses may belong to the thorough tier only (larger bounds, slow ones)
-    (cd $V && VERIF_ONLY="$hits" python3 check.py $pid --tier thorough > $out/check_${pid}_thorough.txt 2>$out/check_${pid}_thorough.err; echo "exit=$? (tier thorough, restricted to the harnesses the native sweep flagged: $hits)" >> $out/check_${pid}_thorough.txt)
-    if grep -q "^VIOLATION" $out/check_${pid}_thorough.txt; then cp $out/check_${pid}_thorough.txt $out/check_$pid.txt; fi
-  fi
-fi
-if [ -z "$hits" ] || { ! grep -q "^VIOLATION" $out/check_$pid.txt && grep -q "no obligation was generated" $out/check_$pid.txt; }; then
-  (cd $V && python3 check.py $pid --tier $tier > $out/check_$pid.txt 2>$out/check_$pid.err; echo "exit=$? (tier $tier, full check; native sweep flagged nothing the restricted runs could decide)" >> $out/check_$pid.txt)
-fi
-oif [ -n "$hits" ]; then
-  (cd $V && VERIF_ONLY="$hits" python3 check.py $pid --tier $tier > $out/check_$pid.txt 2>$out/check_$pid.err; echo "exit=$? (tier $tier, restricted to the harnesses the native sweep flagged: $hits)" >> $out/check_$pid.txt)
-  if ! grep -q "^VIOLATION" $out/check_$pid.txt && [ "$tier" = quick ]; then
-    # the flagged harnesses may belong to the thorough tier only (larger bounds, slow ones)
-    (cd $V && VERIF_ONLY="$hits" python3 check.py $pid --tier thorough > $out/check_${pid}_thorough.txt 2>$out/check_${pid}_thorough.err; echo "exit=$? (tier thorough, restricted to the harnesses the native sweep flagged: $hits)" >> $out/check_${pid}_thorough.txt)
-    if grep -q "^VIOLATION" $out/check_${pid}_thorough.txt; then cp $out/check_${pid}_thorough.txt $out/check_$pid.txt; fi
-  fi
-fi
-if [ -z "$hits" ] || { ! grep -q "^VIOLATION" $out/check_$pid.txt && grep -q "no obligation was generated" $out/check_$pid.txt; }; then
-  (cd $V && python3 check.py $pid --tier $tier > $out/check_$pid.txt 2>$out/check_$pid.err; echo "exit=$? (tier $tier, full check; native sweep flagged nothing the restricted runs could decide)" >> $out/check_$pid.txt)
-fi
-eif [ -n "$hits" ]; then
-  (cd $V && VERIF_ONLY="$hits" python3 check.py $pid --tier $tier > $out/check_$pid.txt 2>$out/check_$pid.err; echo "exit=$? (tier $tier, restricted to the harnesses the native sweep flagged: $hits)" >> $out/check_$pid.txt)
-  if ! grep -q "^VIOLATION" $out/check_$pid.txt && [ "$tier" = quick ]; then
-    # the flagged harnesses may belong to the thorough tier only (larger bounds, slow ones)
-    (cd $V && VERIF_ONLY="$hits" python3 check.py $pid --tier thorough > $out/check_${pid}_thorough.txt 2>$out/check_${pid}_thorough.err; echo "exit=$? (tier thorough, restricted to the harnesses the native sweep flagged: $hits)" >> $out/check_${pid}_thorough.txt)
-    if grep -q "^VIOLATION" $out/check_${pid}_thorough.txt; then cp $out/check_${pid}_thorough.txt $out/check_$pid.txt; fi
-  fi
-fi
-if [ -z "$hits" ] || { ! grep -q "^VIOLATION" $out/check_$pid.txt && grep -q "no obligation was generated" $out/check_$pid.txt; }; then
-  (cd $V && python3 check.py $pid --tier $tier > $out/check_$pid.txt 2>$out/check_$pid.err; echo "exit=$? (tier $tier, full check; native sweep flagged nothing the restricted runs could decide)" >> $out/check_$pid.txt)
-fi
-sif [ -n "$hits" ]; then
-  (cd $V && VERIF_ONLY="$hits" python3 check.py $pid --tier $tier > $out/check_$pid.txt 2>$out/check_$pid.err; echo "exit=$? (tier $tier, restricted to the harnesses the native sweep flagged: $hits)" >> $out/check_$pid.txt)
-  if ! grep -q "^VIOLATION" $out/check_$pid.txt && [ "$tier" = quick ]; then
-    # the flagged harnesses may belong to the thorough tier only (larger bounds, slow ones)
-    (cd $V && VERIF_ONLY="$hits" python3 check.py $pid --tier thorough > $out/check_${pid}_thorough.txt 2>$out/check_${pid}_thorough.err; echo "exit=$? (tier thorough, restricted to the harnesses the native sweep flagged: $hits)" >> $out/check_${pid}_thorough.txt)
-    if grep -q "^VIOLATION" $out/check_${pid}_thorough.txt; then cp $out/check_${pid}_thorough.txt $out/check_$pid.txt; fi
-  fi
-fi
-if [ -z "$hits" ] || { ! grep -q "^VIOLATION" $out/check_$pid.txt && grep -q "no obligation was generated" $out/check_$pid.txt; }; then
-  (cd $V && python3 check.py $pid --tier $tier > $out/check_$pid.txt 2>$out/check_$pid.err; echo "exit=$? (tier $tier, full check; native sweep flagged nothing the restricted runs could decide)" >> $out/check_$pid.txt)
-fi
- if [ -n "$hits" ]; then
-  (cd $V && VERIF_ONLY="$hits" python3 check.py $pid --tier $tier > $out/check_$pid.txt 2>$out/check_$pid.err; echo "exit=$? (tier $tier, restricted to the harnesses the native sweep flagged: $hits)" >> $out/check_$pid.txt)
-  if ! grep -q "^VIOLATION" $out/check_$pid.txt && [ "$tier" = quick ]; then
-    # the flagged harnesses may belong to the thorough tier only (larger bounds, slow ones)
-    (cd $V && VERIF_ONLY="$hits" python3 check.py $pid --tier thorough > $out/check_${pid}_thorough.txt 2>$out/check_${pid}_thorough.err; echo "exit=$? (tier thorough, restricted to the harnesses the native sweep flagged: $hits)" >> $out/check_${pid}_thorough.txt)
-    if grep -q "^VIOLATION" $out/check_${pid}_thorough.txt; then cp $out/check_${pid}_thorough.txt $out/check_$pid.txt; fi
-  fi
-fi
-if [ -z "$hits" ] || { ! grep -q "^VIOLATION" $out/check_$pid.txt && grep -q "no obligation was generated" $out/check_$pid.txt; }; then
-  (cd $V && python3 check.py $pid --tier $tier > $out/check_$pid.txt 2>$out/check_$pid.err; echo "exit=$? (tier $tier, full check; native sweep flagged nothing the restricted runs could decide)" >> $out/check_$pid.txt)
-fi
-nif [ -n "$hits" ]; then
-  (cd $V && VERIF_ONLY="$hits" python3 check.py $pid --tier $tier > $out/check_$pid.txt 2>$out/check_$pid.err; echo "exit=$? (tier $tier, restricted to the harnesses the native sweep flagged: $hits)" >> $out/check_$pid.txt)
-  if ! grep -q "^VIOLATION" $out/check_$pid.txt && [ "$tier" = quick ]; then
-    # the flagged harnesses may belong to the thorough tier only (larger bounds, slow ones)
-    (cd $V && VERIF_ONLY="$hits" python3 check.py $pid --tier thorough > $out/check_${pid}_thorough.txt 2>$out/check_${pid}_thorough.err; echo "exit=$? (tier thorough, restricted to the harnesses the native sweep flagged: $hits)" >> $out/check_${pid}_thorough.txt)
-    if grep -q "^VIOLATION" $out/check_${pid}_thorough.txt; then cp $out/check_${pid}_thorough.txt $out/check_$pid.txt; fi
-  fi
-fi
-if [ -z "$hits" ] || { ! grep -q "^VIOLATION" $out/check_$pid.txt && grep -q "no obligation was generated" $out/check_$pid.txt; }; then
-  (cd $V && python3 check.py $pid --tier $tier > $out/check_$pid.txt 2>$out/check_$pid.err; echo "exit=$? (tier $tier, full check; native sweep flagged nothing the restricted runs could decide)" >> $out/check_$pid.txt)
-fi
-oif [ -n "$hits" ]; then
-  (cd $V && VERIF_ONLY="$hits" python3 check.py $pid --tier $tier > $out/check_$pid.txt 2>$out/check_$pid.err; echo "exit=$? (tier $tier, restricted to the harnesses the native sweep flagged: $hits)" >> $out/check_$pid.txt)
-  if ! grep -q "^VIOLATION" $out/check_$pid.txt && [ "$tier" = quick ]; then
-    # the flagged harnesses may belong to the thorough tier only (larger bounds, slow ones)
-    (cd $V && VERIF_ONLY="$hits" python3 check.py $pid --tier thorough > $out/check_${pid}_thorough.txt 2>$out/check_${pid}_thorough.err; echo "exit=$? (tier thorough, restricted to the harnesses the native sweep flagged: $hits)" >> $out/check_${pid}_thorough.txt)
-    if grep -q "^VIOLATION" $out/check_${pid}_thorough.txt; then cp $out/check_${pid}_thorough.txt $out/check_$pid.txt; fi
-  fi
-fi
-if [ -z "$hits" ] || { ! grep -q "^VIOLATION" $out/check_$pid.txt && grep -q "no obligation was generated" $out/check_$pid.txt; }; then
-  (cd $V && python3 check.py $pid --tier $tier > $out/check_$pid.txt 2>$out/check_$pid.err; echo "exit=$? (tier $tier, full check; native sweep flagged nothing the restricted runs could decide)" >> $out/check_$pid.txt)
-fi
-tif [ -n "$hits" ]; then
-  (cd $V && VERIF_ONLY="$hits" python3 check.py $pid --tier $tier > $out/check_$pid.txt 2>$out/check_$pid.err; echo "exit=$? (tier $tier, restricted to the harnesses the native sweep flagged: $hits)" >> $out/check_$pid.txt)
-  if ! grep -q "^VIOLATION" $out/check_$pid.txt && [ "$tier" = quick ]; then
-    # the flagged harnesses may belong to the thorough tier only (larger bounds, slow ones)
-    (cd $V && VERIF_ONLY="$hits" python3 check.py $pid --tier thorough > $out/check_${pid}_thorough.txt 2>$out/check_${pid}_thorough.err; echo "exit=$? (tier thorough, restricted to the harnesses the native sweep flagged: $hits)" >> $out/check_${pid}_thorough.txt)
-    if grep -q "^VIOLATION" $out/check_${pid}_thorough.txt; then cp $out/check_${pid}_thorough.txt $out/check_$pid.txt; fi
-  fi
-fi
-if [ -z "$hits" ] || { ! grep -q "^VIOLATION" $out/check_$pid.txt && grep -q "no obligation was generated" $out/check_$pid.txt; }; then
-  (cd $V && python3 check.py $pid --tier $tier > $out/check_$pid.txt 2>$out/check_$pid.err; echo "exit=$? (tier $tier, full check; native sweep flagged nothing the restricted runs could decide)" >> $out/check_$pid.txt)
-fi
- if [ -n "$hits" ]; then
-  (cd $V && VERIF_ONLY="$hits" python3 check.py $pid --tier $tier > $out/check_$pid.txt 2>$out/check_$pid.err; echo "exit=$? (tier $tier, restricted to the harnesses the native sweep flagged: $hits)" >> $out/check_$pid.txt)
-  if ! grep -q "^VIOLATION" $out/check_$pid.txt && [ "$tier" = quick ]; then
-    # the flagged harnesses may belong to the thorough tier only (larger bounds, slow ones)
-    (cd $V && VERIF_ONLY="$hits" python3 check.py $pid --tier thorough > $out/check_${pid}_thorough.txt 2>$out/check_${pid}_thorough.err; echo "exit=$? (tier thorough, restricted to the harnesses the native sweep flagged: $hits)" >> $out/check_${pid}_thorough.txt)
-    if grep -q "^VIOLATION" $out/check_${pid}_thorough.txt; then cp $out/check_${pid}_thorough.txt $out/check_$pid.txt; fi
-  fi
-fi
-if [ -z "$hits" ] || { ! grep -q "^VIOLATION" $out/check_$pid.txt && grep -q "no obligation was generated" $out/check_$pid.txt; }; then
-  (cd $V && python3 check.py $pid --tier $tier > $out/check_$pid.txt 2>$out/check_$pid.err; echo "exit=$? (tier $tier, full check; native sweep flagged nothing the restricted runs could decide)" >> $out/check_$pid.txt)
-fi
-aif [ -n "$hits" ]; then
-  (cd $V && VERIF_ONLY="$hits" python3 check.py $pid --tier $tier > $out/check_$pid.txt 2>$out/check_$pid.err; echo "exit=$? (tier $tier, restricted to the harnesses the native sweep flagged: $hits)" >> $out/check_$pid.txt)
-  if ! grep -q "^VIOLATION" $out/check_$pid.txt && [ "$tier" = quick ]; then
-    # the flagged harnesses may belong to the thorough tier only (larger bounds, slow ones)
-    (cd $V && VERIF_ONLY="$hits" python3 check.py $pid --tier thorough > $out/check_${pid}_thorough.txt 2>$out/check_${pid}_thorough.err; echo "exit=$? (tier thorough, restricted to the harnesses the native sweep flagged: $hits)" >> $out/check_${pid}_thorough.txt)
-    if grep -q "^VIOLATION" $out/check_${pid}_thorough.txt; then cp $out/check_${pid}_thorough.txt $out/check_$pid.txt; fi
-  fi
-fi
-if [ -z "$hits" ] || { ! grep -q "^VIOLATION" $out/check_$pid.txt && grep -q "no obligation was generated" $out/check_$pid.txt; }; then
-  (cd $V && python3 check.py $pid --tier $tier > $out/check_$pid.txt 2>$out/check_$pid.err; echo "exit=$? (tier $tier, full check; native sweep flagged nothing the restricted runs could decide)" >> $out/check_$pid.txt)
-fi
-pif [ -n "$hits" ]; then
-  (cd $V && VERIF_ONLY="$hits" python3 check.py $pid --tier $tier > $out/check_$pid.txt 2>$out/check_$pid.err; echo "exit=$? (tier $tier, restricted to the harnesses the native sweep flagged: $hits)" >> $out/check_$pid.txt)
-  if ! grep -q "^VIOLATION" $out/check_$pid.txt && [ "$tier" = quick ]; then
-    # the flagged harnesses may belong to the thorough tier only (larger bounds, slow ones)
-    (cd $V && VERIF_ONLY="$hits" python3 check.py $pid --tier thorough > $out/check_${pid}_thorough.txt 2>$out/check_${pid}_thorough.err; echo "exit=$? (tier thorough, restricted to the harnesses the native sweep flagged: $hits)" >> $out/check_${pid}_thorough.txt)
-    if grep -q "^VIOLATION" $out/check_${pid}_thorough.txt; then cp $out/check_${pid}_thorough.txt $out/check_$pid.txt; fi
-  fi
-fi
-if [ -z "$hits" ] || { ! grep -q "^VIOLATION" $out/check_$pid.txt && grep -q "no obligation was generated" $out/check_$pid.txt; }; then
-  (cd $V && python3 check.py $pid --tier $tier > $out/check_$pid.txt 2>$out/check_$pid.err; echo "exit=$? (tier $tier, full check; native sweep flagged nothing the restricted runs could decide)" >> $out/check_$pid.txt)
-fi
-pif [ -n "$hits" ]; then
-  (cd $V && VERIF_ONLY="$hits" python3 check.py $pid --tier $tier > $out/check_$pid.txt 2>$out/check_$pid.err; echo "exit=$? (tier $tier, restricted to the harnesses the native sweep flagged: $hits)" >> $out/check_$pid.txt)
-  if ! grep -q "^VIOLATION" $out/check_$pid.txt && [ "$tier" = quick ]; then
-    # the flagged harnesses may belong to the thorough tier only (larger bounds, slow ones)
-    (cd $V && VERIF_ONLY="$hits" python3 check.py $pid --tier thorough > $out/check_${pid}_thorough.txt 2>$out/check_${pid}_thorough.err; echo "exit=$? (tier thorough, restricted to the harnesses the native sweep flagged: $hits)" >> $out/check_${pid}_thorough.txt)
-    if grep -q "^VIOLATION" $out/check_${pid}_thorough.txt; then cp $out/check_${pid}_thorough.txt $out/check_$pid.txt; fi
-  fi
-fi
-if [ -z "$hits" ] || { ! grep -q "^VIOLATION" $out/check_$pid.txt && grep -q "no obligation was generated" $out/check_$pid.txt; }; then
-  (cd $V && python3 check.py $pid --tier $tier > $out/check_$pid.txt 2>$out/check_$pid.err; echo "exit=$? (tier $tier, full check; native sweep flagged nothing the restricted runs could decide)" >> $out/check_$pid.txt)
-fi
-lif [ -n "$hits" ]; then
-  (cd $V && VERIF_ONLY="$hits" python3 check.py $pid --tier $tier > $out/check_$pid.txt 2>$out/check_$pid.err; echo "exit=$? (tier $tier, restricted to the harnesses the native sweep flagged: $hits)" >> $out/check_$pid.txt)
-  if ! grep -q "^VIOLATION" $out/check_$pid.txt && [ "$tier" = quick ]; then
-    # the flagged harnesses may belong to the thorough tier only (larger bounds, slow ones)
-    (cd $V && VERIF_ONLY="$hits" python3 check.py $pid --tier thorough > $out/check_${pid}_thorough.txt 2>$out/check_${pid}_thorough.err; echo "exit=$? (tier thorough, restricted to the harnesses the native sweep flagged: $hits)" >> $out/check_${pid}_thorough.txt)
-    if grep -q "^VIOLATION" $out/check_${pid}_thorough.txt; then cp $out/check_${pid}_thorough.txt $out/check_$pid.txt; fi
-  fi
-fi
-if [ -z "$hits" ] || { ! grep -q "^VIOLATION" $out/check_$pid.txt && grep -q "no obligation was generated" $out/check_$pid.txt; }; then
-  (cd $V && python3 check.py $pid --tier $tier > $out/check_$pid.txt 2>$out/check_$pid.err; echo "exit=$? (tier $tier, full check; native sweep flagged nothing the restricted runs could decide)" >> $out/check_$pid.txt)
-fi
-yif [ -n "$hits" ]; then
-  (cd $V && VERIF_ONLY="$hits" python3 check.py $pid --tier $tier > $out/check_$pid.txt 2>$out/check_$pid.err; echo "exit=$? (tier $tier, restricted to the harnesses the native sweep flagged: $hits)" >> $out/check_$pid.txt)
-  if ! grep -q "^VIOLATION" $out/check_$pid.txt && [ "$tier" = quick ]; then
-    # the flagged harnesses may belong to the thorough tier only (larger bounds, slow ones)
-    (cd $V && VERIF_ONLY="$hits" python3 check.py $pid --tier thorough > $out/check_${pid}_thorough.txt 2>$out/check_${pid}_thorough.err; echo "exit=$? (tier thorough, restricted to the harnesses the native sweep flagged: $hits)" >> $out/check_${pid}_thorough.txt)
-    if grep -q "^VIOLATION" $out/check_${pid}_thorough.txt; then cp $out/check_${pid}_thorough.txt $out/check_$pid.txt; fi
-  fi
-fi
-if [ -z "$hits" ] || { ! grep -q "^VIOLATION" $out/check_$pid.txt && grep -q "no obligation was generated" $out/check_$pid.txt; }; then
-  (cd $V && python3 check.py $pid --tier $tier > $out/check_$pid.txt 2>$out/check_$pid.err; echo "exit=$? (tier $tier, full check; native sweep flagged nothing the restricted runs could decide)" >> $out/check_$pid.txt)
-fi
-"if [ -n "$hits" ]; then
-  (cd $V && VERIF_ONLY="$hits" python3 check.py $pid --tier $tier > $out/check_$pid.txt 2>$out/check_$pid.err; echo "exit=$? (tier $tier, restricted to the harnesses the native sweep flagged: $hits)" >> $out/check_$pid.txt)
-  if ! grep -q "^VIOLATION" $out/check_$pid.txt && [ "$tier" = quick ]; then
-    # the flagged harnesses may belong to the thorough tier only (larger bounds, slow ones)
-    (cd $V && VERIF_ONLY="$hits" python3 check.py $pid --tier thorough > $out/check_${pid}_thorough.txt 2>$out/check_${pid}_thorough.err; echo "exit=$? (tier thorough, restricted to the harnesses the native sweep flagged: $hits)" >> $out/check_${pid}_thorough.txt)
-    if grep -q "^VIOLATION" $out/check_${pid}_thorough.txt; then cp $out/check_${pid}_thorough.txt $out/check_$pid.txt; fi
-  fi
-fi
-if [ -z "$hits" ] || { ! grep -q "^VIOLATION" $out/check_$pid.txt && grep -q "no obligation was generated" $out/check_$pid.txt; }; then
-  (cd $V && python3 check.py $pid --tier $tier > $out/check_$pid.txt 2>$out/check_$pid.err; echo "exit=$? (tier $tier, full check; native sweep flagged nothing the restricted runs could decide)" >> $out/check_$pid.txt)
-fi
-;if [ -n "$hits" ]; then
-  (cd $V && VERIF_ONLY="$hits" python3 check.py $pid --tier $tier > $out/check_$pid.txt 2>$out/check_$pid.err; echo "exit=$? (tier $tier, restricted to the harnesses the native sweep flagged: $hits)" >> $out/check_$pid.txt)
-  if ! grep -q "^VIOLATION" $out/check_$pid.txt && [ "$tier" = quick ]; then
-    # the flagged harnesses may belong to the thorough tier only (larger bounds, slow ones)
-    (cd $V && VERIF_ONLY="$hits" python3 check.py $pid --tier thorough > $out/check_${pid}_thorough.txt 2>$out/check_${pid}_thorough.err; echo "exit=$? (tier thorough, restricted to the harnesses the native sweep flagged: $hits)" >> $out/check_${pid}_thorough.txt)
-    if grep -q "^VIOLATION" $out/check_${pid}_thorough.txt; then cp $out/check_${pid}_thorough.txt $out/check_$pid.txt; fi
-  fi
-fi
-if [ -z "$hits" ] || { ! grep -q "^VIOLATION" $out/check_$pid.txt && grep -q "no obligation was generated" $out/check_$pid.txt; }; then
-  (cd $V && python3 check.py $pid --tier $tier > $out/check_$pid.txt 2>$out/check_$pid.err; echo "exit=$? (tier $tier, full check; native sweep flagged nothing the restricted runs could decide)" >> $out/check_$pid.txt)
-fi
- if [ -n "$hits" ]; then
-  (cd $V && VERIF_ONLY="$hits" python3 check.py $pid --tier $tier > $out/check_$pid.txt 2>$out/check_$pid.err; echo "exit=$? (tier $tier, restricted to the harnesses the native sweep flagged: $hits)" >> $out/check_$pid.txt)
-  if ! grep -q "^VIOLATION" $out/check_$pid.txt && [ "$tier" = quick ]; then
-    # the flagged harnesses may belong to the thorough tier only (larger bounds, slow ones)
-    (cd $V && VERIF_ONLY="$hits" python3 check.py $pid --tier thorough > $out/check_${pid}_thorough.txt 2>$out/check_${pid}_thorough.err; echo "exit=$? (tier thorough, restricted to the harnesses the native sweep flagged: $hits)" >> $out/check_${pid}_thorough.txt)
-    if grep -q "^VIOLATION" $out/check_${pid}_thorough.txt; then cp $out/check_${pid}_thorough.txt $out/check_$pid.txt; fi
-  fi
-fi
-if [ -z "$hits" ] || { ! grep -q "^VIOLATION" $out/check_$pid.txt && grep -q "no obligation was generated" $out/check_$pid.txt; }; then
-  (cd $V && python3 check.py $pid --tier $tier > $out/check_$pid.txt 2>$out/check_$pid.err; echo "exit=$? (tier $tier, full check; native sweep flagged nothing the restricted runs could decide)" >> $out/check_$pid.txt)
-fi
-eif [ -n "$hits" ]; then
-  (cd $V && VERIF_ONLY="$hits" python3 check.py $pid --tier $tier > $out/check_$pid.txt 2>$out/check_$pid.err; echo "exit=$? (tier $tier, restricted to the harnesses the native sweep flagged: $hits)" >> $out/check_$pid.txt)
-  if ! grep -q "^VIOLATION" $out/check_$pid.txt && [ "$tier" = quick ]; then
-    # the flagged harnesses may belong to the thorough tier only (larger bounds, slow ones)
-    (cd $V && VERIF_ONLY="$hits" python3 check.py $pid --tier thorough > $out/check_${pid}_thorough.txt 2>$out/check_${pid}_thorough.err; echo "exit=$? (tier thorough, restricted to the harnesses the native sweep flagged: $hits)" >> $out/check_${pid}_thorough.txt)
-    if grep -q "^VIOLATION" $out/check_${pid}_thorough.txt; then cp $out/check_${pid}_thorough.txt $out/check_$pid.txt; fi
-  fi
-fi
-if [ -z "$hits" ] || { ! grep -q "^VIOLATION" $out/check_$pid.txt && grep -q "no obligation was generated" $out/check_$pid.txt; }; then
-  (cd $V && python3 check.py $pid --tier $tier > $out/check_$pid.txt 2>$out/check_$pid.err; echo "exit=$? (tier $tier, full check; native sweep flagged nothing the restricted runs could decide)" >> $out/check_$pid.txt)
-fi
-xif [ -n "$hits" ]; then
-  (cd $V && VERIF_ONLY="$hits" python3 check.py $pid --tier $tier > $out/check_$pid.txt 2>$out/check_$pid.err; echo "exit=$? (tier $tier, restricted to the harnesses the native sweep flagged: $hits)" >> $out/check_$pid.txt)
-  if ! grep -q "^VIOLATION" $out/check_$pid.txt && [ "$tier" = quick ]; then
-    # the flagged harnesses may belong to the thorough tier only (larger bounds, slow ones)
-    (cd $V && VERIF_ONLY="$hits" python3 check.py $pid --tier thorough > $out/check_${pid}_thorough.txt 2>$out/check_${pid}_thorough.err; echo "exit=$? (tier thorough, restricted to the harnesses the native sweep flagged: $hits)" >> $out/check_${pid}_thorough.txt)
-    if grep -q "^VIOLATION" $out/check_${pid}_thorough.txt; then cp $out/check_${pid}_thorough.txt $out/check_$pid.txt; fi
-  fi
-fi
-if [ -z "$hits" ] || { ! grep -q "^VIOLATION" $out/check_$pid.txt && grep -q "no obligation was generated" $out/check_$pid.txt; }; then
-  (cd $V && python3 check.py $pid --tier $tier > $out/check_$pid.txt 2>$out/check_$pid.err; echo "exit=$? (tier $tier, full check; native sweep flagged nothing the restricted runs could decide)" >> $out/check_$pid.txt)
-fi
-iif [ -n "$hits" ]; then
-  (cd $V && VERIF_ONLY="$hits" python3 check.py $pid --tier $tier > $out/check_$pid.txt 2>$out/check_$pid.err; echo "exit=$? (tier $tier, restricted to the harnesses the native sweep flagged: $hits)" >> $out/check_$pid.txt)
-  if ! grep -q "^VIOLATION" $out/check_$pid.txt && [ "$tier" = quick ]; then
-    # the flagged harnesses may belong to the thorough tier only (larger bounds, slow ones)
-    (cd $V && VERIF_ONLY="$hits" python3 check.py $pid --tier thorough > $out/check_${pid}_thorough.txt 2>$out/check_${pid}_thorough.err; echo "exit=$? (tier thorough, restricted to the harnesses the native sweep flagged: $hits)" >> $out/check_${pid}_thorough.txt)
-    if grep -q "^VIOLATION" $out/check_${pid}_thorough.txt; then cp $out/check_${pid}_thorough.txt $out/check_$pid.txt; fi
-  fi
-fi
-if [ -z "$hits" ] || { ! grep -q "^VIOLATION" $out/check_$pid.txt && grep -q "no obligation was generated" $out/check_$pid.txt; }; then
-  (cd $V && python3 check.py $pid --tier $tier > $out/check_$pid.txt 2>$out/check_$pid.err; echo "exit=$? (tier $tier, full check; native sweep flagged nothing the restricted runs could decide)" >> $out/check_$pid.txt)
-fi
-tif [ -n "$hits" ]; then
-  (cd $V && VERIF_ONLY="$hits" python3 check.py $pid --tier $tier > $out/check_$pid.txt 2>$out/check_$pid.err; echo "exit=$? (tier $tier, restricted to the harnesses the native sweep flagged: $hits)" >> $out/check_$pid.txt)
-  if ! grep -q "^VIOLATION" $out/check_$pid.txt && [ "$tier" = quick ]; then
-    # the flagged harnesses may belong to the thorough tier only (larger bounds, slow ones)
-    (cd $V && VERIF_ONLY="$hits" python3 check.py $pid --tier thorough > $out/check_${pid}_thorough.txt 2>$out/check_${pid}_thorough.err; echo "exit=$? (tier thorough, restricted to the harnesses the native sweep flagged: $hits)" >> $out/check_${pid}_thorough.txt)
-    if grep -q "^VIOLATION" $out/check_${pid}_thorough.txt; then cp $out/check_${pid}_thorough.txt $out/check_$pid.txt; fi
-  fi
-fi
-if [ -z "$hits" ] || { ! grep -q "^VIOLATION" $out/check_$pid.txt && grep -q "no obligation was generated" $out/check_$pid.txt; }; then
-  (cd $V && python3 check.py $pid --tier $tier > $out/check_$pid.txt 2>$out/check_$pid.err; echo "exit=$? (tier $tier, full check; native sweep flagged nothing the restricted runs could decide)" >> $out/check_$pid.txt)
-fi
- if [ -n "$hits" ]; then
-  (cd $V && VERIF_ONLY="$hits" python3 check.py $pid --tier $tier > $out/check_$pid.txt 2>$out/check_$pid.err; echo "exit=$? (tier $tier, restricted to the harnesses the native sweep flagged: $hits)" >> $out/check_$pid.txt)
-  if ! grep -q "^VIOLATION" $out/check_$pid.txt && [ "$tier" = quick ]; then
-    # the flagged harnesses may belong to the thorough tier only (larger bounds, slow ones)
-    (cd $V && VERIF_ONLY="$hits" python3 check.py $pid --tier thorough > $out/check_${pid}_thorough.txt 2>$out/check_${pid}_thorough.err; echo "exit=$? (tier thorough, restricted to the harnesses the native sweep flagged: $hits)" >> $out/check_${pid}_thorough.txt)
-    if grep -q "^VIOLATION" $out/check_${pid}_thorough.txt; then cp $out/check_${pid}_thorough.txt $out/check_$pid.txt; fi
-  fi
-fi
-if [ -z "$hits" ] || { ! grep -q "^VIOLATION" $out/check_$pid.txt && grep -q "no obligation was generated" $out/check_$pid.txt; }; then
-  (cd $V && python3 check.py $pid --tier $tier > $out/check_$pid.txt 2>$out/check_$pid.err; echo "exit=$? (tier $tier, full check; native sweep flagged nothing the restricted runs could decide)" >> $out/check_$pid.txt)
-fi
-2if [ -n "$hits" ]; then
-  (cd $V && VERIF_ONLY="$hits" python3 check.py $pid --tier $tier > $out/check_$pid.txt 2>$out/check_$pid.err; echo "exit=$? (tier $tier, restricted to the harnesses the native sweep flagged: $hits)" >> $out/check_$pid.txt)
-  if ! grep -q "^VIOLATION" $out/check_$pid.txt && [ "$tier" = quick ]; then
-    # the flagged harnesses may belong to the thorough tier only (larger bounds, slow ones)
-    (cd $V && VERIF_ONLY="$hits" python3 check.py $pid --tier thorough > $out/check_${pid}_thorough.txt 2>$out/check_${pid}_thorough.err; echo "exit=$? (tier thorough, restricted to the harnesses the native sweep flagged: $hits)" >> $out/check_${pid}_thorough.txt)
-    if grep -q "^VIOLATION" $out/check_${pid}_thorough.txt; then cp $out/check_${pid}_thorough.txt $out/check_$pid.txt; fi
-  fi
-fi
-if [ -z "$hits" ] || { ! grep -q "^VIOLATION" $out/check_$pid.txt && grep -q "no obligation was generated" $out/check_$pid.txt; }; then
-  (cd $V && python3 check.py $pid --tier $tier > $out/check_$pid.txt 2>$out/check_$pid.err; echo "exit=$? (tier $tier, full check; native sweep flagged nothing the restricted runs could decide)" >> $out/check_$pid.txt)
-fi
-;if [ -n "$hits" ]; then
-  (cd $V && VERIF_ONLY="$hits" python3 check.py $pid --tier $tier > $out/check_$pid.txt 2>$out/check_$pid.err; echo "exit=$? (tier $tier, restricted to the harnesses the native sweep flagged: $hits)" >> $out/check_$pid.txt)
-  if ! grep -q "^VIOLATION" $out/check_$pid.txt && [ "$tier" = quick ]; then
-    # the flagged harnesses may belong to the thorough tier only (larger bounds, slow ones)
-    (cd $V && VERIF_ONLY="$hits" python3 check.py $pid --tier thorough > $out/check_${pid}_thorough.txt 2>$out/check_${pid}_thorough.err; echo "exit=$? (tier thorough, restricted to the harnesses the native sweep flagged: $hits)" >> $out/check_${pid}_thorough.txt)
-    if grep -q "^VIOLATION" $out/check_${pid}_thorough.txt; then cp $out/check_${pid}_thorough.txt $out/check_$pid.txt; fi
-  fi
-fi
-if [ -z "$hits" ] || { ! grep -q "^VIOLATION" $out/check_$pid.txt && grep -q "no obligation was generated" $out/check_$pid.txt; }; then
-  (cd $V && python3 check.py $pid --tier $tier > $out/check_$pid.txt 2>$out/check_$pid.err; echo "exit=$? (tier $tier, full check; native sweep flagged nothing the restricted runs could decide)" >> $out/check_$pid.txt)
-fi
- if [ -n "$hits" ]; then
-  (cd $V && VERIF_ONLY="$hits" python3 check.py $pid --tier $tier > $out/check_$pid.txt 2>$out/check_$pid.err; echo "exit=$? (tier $tier, restricted to the harnesses the native sweep flagged: $hits)" >> $out/check_$pid.txt)
-  if ! grep -q "^VIOLATION" $out/check_$pid.txt && [ "$tier" = quick ]; then
-    # the flagged harnesses may belong to the thorough tier only (larger bounds, slow ones)
-    (cd $V && VERIF_ONLY="$hits" python3 check.py $pid --tier thorough > $out/check_${pid}_thorough.txt 2>$out/check_${pid}_thorough.err; echo "exit=$? (tier thorough, restricted to the harnesses the native sweep flagged: $hits)" >> $out/check_${pid}_thorough.txt)
-    if grep -q "^VIOLATION" $out/check_${pid}_thorough.txt; then cp $out/check_${pid}_thorough.txt $out/check_$pid.txt; fi
-  fi
-fi
-if [ -z "$hits" ] || { ! grep -q "^VIOLATION" $out/check_$pid.txt && grep -q "no obligation was generated" $out/check_$pid.txt; }; then
-  (cd $V && python3 check.py $pid --tier $tier > $out/check_$pid.txt 2>$out/check_$pid.err; echo "exit=$? (tier $tier, full check; native sweep flagged nothing the restricted runs could decide)" >> $out/check_$pid.txt)
-fi
-}if [ -n "$hits" ]; then
-  (cd $V && VERIF_ONLY="$hits" python3 check.py $pid --tier $tier > $out/check_$pid.txt 2>$out/check_$pid.err; echo "exit=$? (tier $tier, restricted to the harnesses the native sweep flagged: $hits)" >> $out/check_$pid.txt)
-  if ! grep -q "^VIOLATION" $out/check_$pid.txt && [ "$tier" = quick ]; then
-    # the flagged harnesses may belong to the thorough tier only (larger bounds, slow ones)
-    (cd $V && VERIF_ONLY="$hits" python3 check.py $pid --tier thorough > $out/check_${pid}_thorough.txt 2>$out/check_${pid}_thorough.err; echo "exit=$? (tier thorough, restricted to the harnesses the native sweep flagged: $hits)" >> $out/check_${pid}_thorough.txt)
-    if grep -q "^VIOLATION" $out/check_${pid}_thorough.txt; then cp $out/check_${pid}_thorough.txt $out/check_$pid.txt; fi
-  fi
-fi
-if [ -z "$hits" ] || { ! grep -q "^VIOLATION" $out/check_$pid.txt && grep -q "no obligation was generated" $out/check_$pid.txt; }; then
-  (cd $V && python3 check.py $pid --tier $tier > $out/check_$pid.txt 2>$out/check_$pid.err; echo "exit=$? (tier $tier, full check; native sweep flagged nothing the restricted runs could decide)" >> $out/check_$pid.txt)
-fi
-
-if [ -n "$hits" ]; then
-  (cd $V && VERIF_ONLY="$hits" python3 check.py $pid --tier $tier > $out/check_$pid.txt 2>$out/check_$pid.err; echo "exit=$? (tier $tier, restricted to the harnesses the native sweep flagged: $hits)" >> $out/check_$pid.txt)
-  if ! grep -q "^VIOLATION" $out/check_$pid.txt && [ "$tier" = quick ]; then
-    # the flagged harnesses may belong to the thorough tier only (larger bounds, slow ones)
-    (cd $V && VERIF_ONLY="$hits" python3 check.py $pid --tier thorough > $out/check_${pid}_thorough.txt 2>$out/check_${pid}_thorough.err; echo "exit=$? (tier thorough, restricted to the harnesses the native sweep flagged: $hits)" >> $out/check_${pid}_thorough.txt)
-    if grep -q "^VIOLATION" $out/check_${pid}_thorough.txt; then cp $out/check_${pid}_thorough.txt $out/check_$pid.txt; fi
-  fi
-fi
-if [ -z "$hits" ] || { ! grep -q "^VIOLATION" $out/check_$pid.txt && grep -q "no obligation was generated" $out/check_$pid.txt; }; then
-  (cd $V && python3 check.py $pid --tier $tier > $out/check_$pid.txt 2>$out/check_$pid.err; echo "exit=$? (tier $tier, full check; native sweep flagged nothing the restricted runs could decide)" >> $out/check_$pid.txt)
-fi
-oif [ -n "$hits" ]; then
-  (cd $V && VERIF_ONLY="$hits" python3 check.py $pid --tier $tier > $out/check_$pid.txt 2>$out/check_$pid.err; echo "exit=$? (tier $tier, restricted to the harnesses the native sweep flagged: $hits)" >> $out/check_$pid.txt)
-  if ! grep -q "^VIOLATION" $out/check_$pid.txt && [ "$tier" = quick ]; then
-    # the flagged harnesses may belong to the thorough tier only (larger bounds, slow ones)
-    (cd $V && VERIF_ONLY="$hits" python3 check.py $pid --tier thorough > $out/check_${pid}_thorough.txt 2>$out/check_${pid}_thorough.err; echo "exit=$? (tier thorough, restricted to the harnesses the native sweep flagged: $hits)" >> $out/check_${pid}_thorough.txt)
-    if grep -q "^VIOLATION" $out/check_${pid}_thorough.txt; then cp $out/check_${pid}_thorough.txt $out/check_$pid.txt; fi
-  fi
-fi
-if [ -z "$hits" ] || { ! grep -q "^VIOLATION" $out/check_$pid.txt && grep -q "no obligation was generated" $out/check_$pid.txt; }; then
-  (cd $V && python3 check.py $pid --tier $tier > $out/check_$pid.txt 2>$out/check_$pid.err; echo "exit=$? (tier $tier, full check; native sweep flagged nothing the restricted runs could decide)" >> $out/check_$pid.txt)
-fi
-uif [ -n "$hits" ]; then
-  (cd $V && VERIF_ONLY="$hits" python3 check.py $pid --tier $tier > $out/check_$pid.txt 2>$out/check_$pid.err; echo "exit=$? (tier $tier, restricted to the harnesses the native sweep flagged: $hits)" >> $out/check_$pid.txt)
-  if ! grep -q "^VIOLATION" $out/check_$pid.txt && [ "$tier" = quick ]; then
-    # the flagged harnesses may belong to the thorough tier only (larger bounds, slow ones)
-    (cd $V && VERIF_ONLY="$hits" python3 check.py $pid --tier thorough > $out/check_${pid}_thorough.txt 2>$out/check_${pid}_thorough.err; echo "exit=$? (tier thorough, restricted to the harnesses the native sweep flagged: $hits)" >> $out/check_${pid}_thorough.txt)
-    if grep -q "^VIOLATION" $out/check_${pid}_thorough.txt; then cp $out/check_${pid}_thorough.txt $out/check_$pid.txt; fi
-  fi
-fi
-if [ -z "$hits" ] || { ! grep -q "^VIOLATION" $out/check_$pid.txt && grep -q "no obligation was generated" $out/check_$pid.txt; }; then
-  (cd $V && python3 check.py $pid --tier $tier > $out/check_$pid.txt 2>$out/check_$pid.err; echo "exit=$? (tier $tier, full check; native sweep flagged nothing the restricted runs could decide)" >> $out/check_$pid.txt)
-fi
-tif [ -n "$hits" ]; then
-  (cd $V && VERIF_ONLY="$hits" python3 check.py $pid --tier $tier > $out/check_$pid.txt 2>$out/check_$pid.err; echo "exit=$? (tier $tier, restricted to the harnesses the native sweep flagged: $hits)" >> $out/check_$pid.txt)
-  if ! grep -q "^VIOLATION" $out/check_$pid.txt && [ "$tier" = quick ]; then
-    # the flagged harnesses may belong to the thorough tier only (larger bounds, slow ones)
-    (cd $V && VERIF_ONLY="$hits" python3 check.py $pid --tier thorough > $out/check_${pid}_thorough.txt 2>$out/check_${pid}_thorough.err; echo "exit=$? (tier thorough, restricted to the harnesses the native sweep flagged: $hits)" >> $out/check_${pid}_thorough.txt)
-    if grep -q "^VIOLATION" $out/check_${pid}_thorough.txt; then cp $out/check_${pid}_thorough.txt $out/check_$pid.txt; fi
-  fi
-fi
-if [ -z "$hits" ] || { ! grep -q "^VIOLATION" $out/check_$pid.txt && grep -q "no obligation was generated" $out/check_$pid.txt; }; then
-  (cd $V && python3 check.py $pid --tier $tier > $out/check_$pid.txt 2>$out/check_$pid.err; echo "exit=$? (tier $tier, full check; native sweep flagged nothing the restricted runs could decide)" >> $out/check_$pid.txt)
-fi
-=if [ -n "$hits" ]; then
-  (cd $V && VERIF_ONLY="$hits" python3 check.py $pid --tier $tier > $out/check_$pid.txt 2>$out/check_$pid.err; echo "exit=$? (tier $tier, restricted to the harnesses the native sweep flagged: $hits)" >> $out/check_$pid.txt)
-  if ! grep -q "^VIOLATION" $out/check_$pid.txt && [ "$tier" = quick ]; then
-    # the flagged harnesses may belong to the thorough tier only (larger bounds, slow ones)
-    (cd $V && VERIF_ONLY="$hits" python3 check.py $pid --tier thorough > $out/check_${pid}_thorough.txt 2>$out/check_${pid}_thorough.err; echo "exit=$? (tier thorough, restricted to the harnesses the native sweep flagged: $hits)" >> $out/check_${pid}_thorough.txt)
-    if grep -q "^VIOLATION" $out/check_${pid}_thorough.txt; then cp $out/check_${pid}_thorough.txt $out/check_$pid.txt; fi
-  fi
-fi
-if [ -z "$hits" ] || { ! grep -q "^VIOLATION" $out/check_$pid.txt && grep -q "no obligation was generated" $out/check_$pid.txt; }; then
-  (cd $V && python3 check.py $pid --tier $tier > $out/check_$pid.txt 2>$out/check_$pid.err; echo "exit=$? (tier $tier, full check; native sweep flagged nothing the restricted runs could decide)" >> $out/check_$pid.txt)
-fi
-$if [ -n "$hits" ]; then
-  (cd $V && VERIF_ONLY="$hits" python3 check.py $pid --tier $tier > $out/check_$pid.txt 2>$out/check_$pid.err; echo "exit=$? (tier $tier, restricted to the harnesses the native sweep flagged: $hits)" >> $out/check_$pid.txt)
-  if ! grep -q "^VIOLATION" $out/check_$pid.txt && [ "$tier" = quick ]; then
-    # the flagged harnesses may belong to the thorough tier only (larger bounds, slow ones)
-    (cd $V && VERIF_ONLY="$hits" python3 check.py $pid --tier thorough > $out/check_${pid}_thorough.txt 2>$out/check_${pid}_thorough.err; echo "exit=$? (tier thorough, restricted to the harnesses the native sweep flagged: $hits)" >> $out/check_${pid}_thorough.txt)
-    if grep -q "^VIOLATION" $out/check_${pid}_thorough.txt; then cp $out/check_${pid}_thorough.txt $out/check_$pid.txt; fi
-  fi
-fi
-if [ -z "$hits" ] || { ! grep -q "^VIOLATION" $out/check_$pid.txt && grep -q "no obligation was generated" $out/check_$pid.txt; }; then
-  (cd $V && python3 check.py $pid --tier $tier > $out/check_$pid.txt 2>$out/check_$pid.err; echo "exit=$? (tier $tier, full check; native sweep flagged nothing the restricted runs could decide)" >> $out/check_$pid.txt)
-fi
-Vif [ -n "$hits" ]; then
-  (cd $V && VERIF_ONLY="$hits" python3 check.py $pid --tier $tier > $out/check_$pid.txt 2>$out/check_$pid.err; echo "exit=$? (tier $tier, restricted to the harnesses the native sweep flagged: $hits)" >> $out/check_$pid.txt)
-  if ! grep -q "^VIOLATION" $out/check_$pid.txt && [ "$tier" = quick ]; then
-    # the flagged harnesses may belong to the thorough tier only (larger bounds, slow ones)
-    (cd $V && VERIF_ONLY="$hits" python3 check.py $pid --tier thorough > $out/check_${pid}_thorough.txt 2>$out/check_${pid}_thorough.err; echo "exit=$? (tier thorough, restricted to the harnesses the native sweep flagged: $hits)" >> $out/check_${pid}_thorough.txt)
-    if grep -q "^VIOLATION" $out/check_${pid}_thorough.txt; then cp $out/check_${pid}_thorough.txt $out/check_$pid.txt; fi
-  fi
-fi
-if [ -z "$hits" ] || { ! grep -q "^VIOLATION" $out/check_$pid.txt && grep -q "no obligation was generated" $out/check_$pid.txt; }; then
-  (cd $V && python3 check.py $pid --tier $tier > $out/check_$pid.txt 2>$out/check_$pid.err; echo "exit=$? (tier $tier, full check; native sweep flagged nothing the restricted runs could decide)" >> $out/check_$pid.txt)
-fi
-/if [ -n "$hits" ]; then
-  (cd $V && VERIF_ONLY="$hits" python3 check.py $pid --tier $tier > $out/check_$pid.txt 2>$out/check_$pid.err; echo "exit=$? (tier $tier, restricted to the harnesses the native sweep flagged: $hits)" >> $out/check_$pid.txt)
-  if ! grep -q "^VIOLATION" $out/check_$pid.txt && [ "$tier" = quick ]; then
-    # the flagged harnesses may belong to the thorough tier only (larger bounds, slow ones)
-    (cd $V && VERIF_ONLY="$hits" python3 check.py $pid --tier thorough > $out/check_${pid}_thorough.txt 2>$out/check_${pid}_thorough.err; echo "exit=$? (tier thorough, restricted to the harnesses the native sweep flagged: $hits)" >> $out/check_${pid}_thorough.txt)
-    if grep -q "^VIOLATION" $out/check_${pid}_thorough.txt; then cp $out/check_${pid}_thorough.txt $out/check_$pid.txt; fi
-  fi
-fi
-if [ -z "$hits" ] || { ! grep -q "^VIOLATION" $out/check_$pid.txt && grep -q "no obligation was generated" $out/check_$pid.txt; }; then
-  (cd $V && python3 check.py $pid --tier $tier > $out/check_$pid.txt 2>$out/check_$pid.err; echo "exit=$? (tier $tier, full check; native sweep flagged nothing the restricted runs could decide)" >> $out/check_$pid.txt)
-fi
-sif [ -n "$hits" ]; then
-  (cd $V && VERIF_ONLY="$hits" python3 check.py $pid --tier $tier > $out/check_$pid.txt 2>$out/check_$pid.err; echo "exit=$? (tier $tier, restricted to the harnesses the native sweep flagged: $hits)" >> $out/check_$pid.txt)
-  if ! grep -q "^VIOLATION" $out/check_$pid.txt && [ "$tier" = quick ]; then
-    # the flagged harnesses may belong to the thorough tier only (larger bounds, slow ones)
-    (cd $V && VERIF_ONLY="$hits" python3 check.py $pid --tier thorough > $out/check_${pid}_thorough.txt 2>$out/check_${pid}_thorough.err; echo "exit=$? (tier thorough, restricted to the harnesses the native sweep flagged: $hits)" >> $out/check_${pid}_thorough.txt)
-    if grep -q "^VIOLATION" $out/check_${pid}_thorough.txt; then cp $out/check_${pid}_thorough.txt $out/check_$pid.txt; fi
-  fi
-fi
-if [ -z "$hits" ] || { ! grep -q "^VIOLATION" $out/check_$pid.txt && grep -q "no obligation was generated" $out/check_$pid.txt; }; then
-  (cd $V && python3 check.py $pid --tier $tier > $out/check_$pid.txt 2>$out/check_$pid.err; echo "exit=$? (tier $tier, full check; native sweep flagged nothing the restricted runs could decide)" >> $out/check_$pid.txt)
-fi
-eif [ -n "$hits" ]; then
-  (cd $V && VERIF_ONLY="$hits" python3 check.py $pid --tier $tier > $out/check_$pid.txt 2>$out/check_$pid.err; echo "exit=$? (tier $tier, restricted to the harnesses the native sweep flagged: $hits)" >> $out/check_$pid.txt)
-  if ! grep -q "^VIOLATION" $out/check_$pid.txt && [ "$tier" = quick ]; then
-    # the flagged harnesses may belong to the thorough tier only (larger bounds, slow ones)
-    (cd $V && VERIF_ONLY="$hits" python3 check.py $pid --tier thorough > $out/check_${pid}_thorough.txt 2>$out/check_${pid}_thorough.err; echo "exit=$? (tier thorough, restricted to the harnesses the native sweep flagged: $hits)" >> $out/check_${pid}_thorough.txt)
-    if grep -q "^VIOLATION" $out/check_${pid}_thorough.txt; then cp $out/check_${pid}_thorough.txt $out/check_$pid.txt; fi
-  fi
-fi
-if [ -z "$hits" ] || { ! grep -q "^VIOLATION" $out/check_$pid.txt && grep -q "no obligation was generated" $out/check_$pid.txt; }; then
-  (cd $V && python3 check.py $pid --tier $tier > $out/check_$pid.txt 2>$out/check_$pid.err; echo "exit=$? (tier $tier, full check; native sweep flagged nothing the restricted runs could decide)" >> $out/check_$pid.txt)
-fi
-eif [ -n "$hits" ]; then
-  (cd $V && VERIF_ONLY="$hits" python3 check.py $pid --tier $tier > $out/check_$pid.txt 2>$out/check_$pid.err; echo "exit=$? (tier $tier, restricted to the harnesses the native sweep flagged: $hits)" >> $out/check_$pid.txt)
-  if ! grep -q "^VIOLATION" $out/check_$pid.txt && [ "$tier" = quick ]; then
-    # the flagged harnesses may belong to the thorough tier only (larger bounds, slow ones)
-    (cd $V && VERIF_ONLY="$hits" python3 check.py $pid --tier thorough > $out/check_${pid}_thorough.txt 2>$out/check_${pid}_thorough.err; echo "exit=$? (tier thorough, restricted to the harnesses the native sweep flagged: $hits)" >> $out/check_${pid}_thorough.txt)
-    if grep -q "^VIOLATION" $out/check_${pid}_thorough.txt; then cp $out/check_${pid}_thorough.txt $out/check_$pid.txt; fi
-  fi
-fi
-if [ -z "$hits" ] || { ! grep -q "^VIOLATION" $out/check_$pid.txt && grep -q "no obligation was generated" $out/check_$pid.txt; }; then
-  (cd $V && python3 check.py $pid --tier $tier > $out/check_$pid.txt 2>$out/check_$pid.err; echo "exit=$? (tier $tier, full check; native sweep flagged nothing the restricted runs could decide)" >> $out/check_$pid.txt)
-fi
-dif [ -n "$hits" ]; then
-  (cd $V && VERIF_ONLY="$hits" python3 check.py $pid --tier $tier > $out/check_$pid.txt 2>$out/check_$pid.err; echo "exit=$? (tier $tier, restricted to the harnesses the native sweep flagged: $hits)" >> $out/check_$pid.txt)
-  if ! grep -q "^VIOLATION" $out/check_$pid.txt && [ "$tier" = quick ]; then
-    # the flagged harnesses may belong to the thorough tier only (larger bounds, slow ones)
-    (cd $V && VERIF_ONLY="$hits" python3 check.py $pid --tier thorough > $out/check_${pid}_thorough.txt 2>$out/check_${pid}_thorough.err; echo "exit=$? (tier thorough, restricted to the harnesses the native sweep flagged: $hits)" >> $out/check_${pid}_thorough.txt)
-    if grep -q "^VIOLATION" $out/check_${pid}_thorough.txt; then cp $out/check_${pid}_thorough.txt $out/check_$pid.txt; fi
-  fi
-fi
-if [ -z "$hits" ] || { ! grep -q "^VIOLATION" $out/check_$pid.txt && grep -q "no obligation was generated" $out/check_$pid.txt; }; then
-  (cd $V && python3 check.py $pid --tier $tier > $out/check_$pid.txt 2>$out/check_$pid.err; echo "exit=$? (tier $tier, full check; native sweep flagged nothing the restricted runs could decide)" >> $out/check_$pid.txt)
-fi
-eif [ -n "$hits" ]; then
-  (cd $V && VERIF_ONLY="$hits" python3 check.py $pid --tier $tier > $out/check_$pid.txt 2>$out/check_$pid.err; echo "exit=$? (tier $tier, restricted to the harnesses the native sweep flagged: $hits)" >> $out/check_$pid.txt)
-  if ! grep -q "^VIOLATION" $out/check_$pid.txt && [ "$tier" = quick ]; then
-    # the flagged harnesses may belong to the thorough tier only (larger bounds, slow ones)
-    (cd $V && VERIF_ONLY="$hits" python3 check.py $pid --tier thorough > $out/check_${pid}_thorough.txt 2>$out/check_${pid}_thorough.err; echo "exit=$? (tier thorough, restricted to the harnesses the native sweep flagged: $hits)" >> $out/check_${pid}_thorough.txt)
-    if grep -q "^VIOLATION" $out/check_${pid}_thorough.txt; then cp $out/check_${pid}_thorough.txt $out/check_$pid.txt; fi
-  fi
-fi
-if [ -z "$hits" ] || { ! grep -q "^VIOLATION" $out/check_$pid.txt && grep -q "no obligation was generated" $out/check_$pid.txt; }; then
-  (cd $V && python3 check.py $pid --tier $tier > $out/check_$pid.txt 2>$out/check_$pid.err; echo "exit=$? (tier $tier, full check; native sweep flagged nothing the restricted runs could decide)" >> $out/check_$pid.txt)
-fi
-dif [ -n "$hits" ]; then
-  (cd $V && VERIF_ONLY="$hits" python3 check.py $pid --tier $tier > $out/check_$pid.txt 2>$out/check_$pid.err; echo "exit=$? (tier $tier, restricted to the harnesses the native sweep flagged: $hits)" >> $out/check_$pid.txt)
-  if ! grep -q "^VIOLATION" $out/check_$pid.txt && [ "$tier" = quick ]; then
-    # the flagged harnesses may belong to the thorough tier only (larger bounds, slow ones)
-    (cd $V && VERIF_ONLY="$hits" python3 check.py $pid --tier thorough > $out/check_${pid}_thorough.txt 2>$out/check_${pid}_thorough.err; echo "exit=$? (tier thorough, restricted to the harnesses the native sweep flagged: $hits)" >> $out/check_${pid}_thorough.txt)
-    if grep -q "^VIOLATION" $out/check_${pid}_thorough.txt; then cp $out/check_${pid}_thorough.txt $out/check_$pid.txt; fi
-  fi
-fi
-if [ -z "$hits" ] || { ! grep -q "^VIOLATION" $out/check_$pid.txt && grep -q "no obligation was generated" $out/check_$pid.txt; }; then
-  (cd $V && python3 check.py $pid --tier $tier > $out/check_$pid.txt 2>$out/check_$pid.err; echo "exit=$? (tier $tier, full check; native sweep flagged nothing the restricted runs could decide)" >> $out/check_$pid.txt)
-fi
-/if [ -n "$hits" ]; then
-  (cd $V && VERIF_ONLY="$hits" python3 check.py $pid --tier $tier > $out/check_$pid.txt 2>$out/check_$pid.err; echo "exit=$? (tier $tier, restricted to the harnesses the native sweep flagged: $hits)" >> $out/check_$pid.txt)
-  if ! grep -q "^VIOLATION" $out/check_$pid.txt && [ "$tier" = quick ]; then
-    # the flagged harnesses may belong to the thorough tier only (larger bounds, slow ones)
-    (cd $V && VERIF_ONLY="$hits" python3 check.py $pid --tier thorough > $out/check_${pid}_thorough.txt 2>$out/check_${pid}_thorough.err; echo "exit=$? (tier thorough, restricted to the harnesses the native sweep flagged: $hits)" >> $out/check_${pid}_thorough.txt)
-    if grep -q "^VIOLATION" $out/check_${pid}_thorough.txt; then cp $out/check_${pid}_thorough.txt $out/check_$pid.txt; fi
-  fi
-fi
-if [ -z "$hits" ] || { ! grep -q "^VIOLATION" $out/check_$pid.txt && grep -q "no obligation was generated" $out/check_$pid.txt; }; then
-  (cd $V && python3 check.py $pid --tier $tier > $out/check_$pid.txt 2>$out/check_$pid.err; echo "exit=$? (tier $tier, full check; native sweep flagged nothing the restricted runs could decide)" >> $out/check_$pid.txt)
-fi
-$if [ -n "$hits" ]; then
-  (cd $V && VERIF_ONLY="$hits" python3 check.py $pid --tier $tier > $out/check_$pid.txt 2>$out/check_$pid.err; echo "exit=$? (tier $tier, restricted to the harnesses the native sweep flagged: $hits)" >> $out/check_$pid.txt)
-  if ! grep -q "^VIOLATION" $out/check_$pid.txt && [ "$tier" = quick ]; then
-    # the flagged harnesses may belong to the thorough tier only (larger bounds, slow ones)
-    (cd $V && VERIF_ONLY="$hits" python3 check.py $pid --tier thorough > $out/check_${pid}_thorough.txt 2>$out/check_${pid}_thorough.err; echo "exit=$? (tier thorough, restricted to the harnesses the native sweep flagged: $hits)" >> $out/check_${pid}_thorough.txt)
-    if grep -q "^VIOLATION" $out/check_${pid}_thorough.txt; then cp $out/check_${pid}_thorough.txt $out/check_$pid.txt; fi
-  fi
-fi
-if [ -z "$hits" ] || { ! grep -q "^VIOLATION" $out/check_$pid.txt && grep -q "no obligation was generated" $out/check_$pid.txt; }; then
-  (cd $V && python3 check.py $pid --tier $tier > $out/check_$pid.txt 2>$out/check_$pid.err; echo "exit=$? (tier $tier, full check; native sweep flagged nothing the restricted runs could decide)" >> $out/check_$pid.txt)
-fi
-nif [ -n "$hits" ]; then
-  (cd $V && VERIF_ONLY="$hits" python3 check.py $pid --tier $tier > $out/check_$pid.txt 2>$out/check_$pid.err; echo "exit=$? (tier $tier, restricted to the harnesses the native sweep flagged: $hits)" >> $out/check_$pid.txt)
-  if ! grep -q "^VIOLATION" $out/check_$pid.txt && [ "$tier" = quick ]; then
-    # the flagged harnesses may belong to the thorough tier only (larger bounds, slow ones)
-    (cd $V && VERIF_ONLY="$hits" python3 check.py $pid --tier thorough > $out/check_${pid}_thorough.txt 2>$out/check_${pid}_thorough.err; echo "exit=$? (tier thorough, restricted to the harnesses the native sweep flagged: $hits)" >> $out/check_${pid}_thorough.txt)
-    if grep -q "^VIOLATION" $out/check_${pid}_thorough.txt; then cp $out/check_${pid}_thorough.txt $out/check_$pid.txt; fi
-  fi
-fi
-if [ -z "$hits" ] || { ! grep -q "^VIOLATION" $out/check_$pid.txt && grep -q "no obligation was generated" $out/check_$pid.txt; }; then
-  (cd $V && python3 check.py $pid --tier $tier > $out/check_$pid.txt 2>$out/check_$pid.err; echo "exit=$? (tier $tier, full check; native sweep flagged nothing the restricted runs could decide)" >> $out/check_$pid.txt)
-fi
-aif [ -n "$hits" ]; then
-  (cd $V && VERIF_ONLY="$hits" python3 check.py $pid --tier $tier > $out/check_$pid.txt 2>$out/check_$pid.err; echo "exit=$? (tier $tier, restricted to the harnesses the native sweep flagged: $hits)" >> $out/check_$pid.txt)
-  if ! grep -q "^VIOLATION" $out/check_$pid.txt && [ "$tier" = quick ]; then
-    # the flagged harnesses may belong to the thorough tier only (larger bounds, slow ones)
-    (cd $V && VERIF_ONLY="$hits" python3 check.py $pid --tier thorough > $out/check_${pid}_thorough.txt 2>$out/check_${pid}_thorough.err; echo "exit=$? (tier thorough, restricted to the harnesses the native sweep flagged: $hits)" >> $out/check_${pid}_thorough.txt)
-    if grep -q "^VIOLATION" $out/check_${pid}_thorough.txt; then cp $out/check_${pid}_thorough.txt $out/check_$pid.txt; fi
-  fi
-fi
-if [ -z "$hits" ] || { ! grep -q "^VIOLATION" $out/check_$pid.txt && grep -q "no obligation was generated" $out/check_$pid.txt; }; then
-  (cd $V && python3 check.py $pid --tier $tier > $out/check_$pid.txt 2>$out/check_$pid.err; echo "exit=$? (tier $tier, full check; native sweep flagged nothing the restricted runs could decide)" >> $out/check_$pid.txt)
-fi
-mif [ -n "$hits" ]; then
-  (cd $V && VERIF_ONLY="$hits" python3 check.py $pid --tier $tier > $out/check_$pid.txt 2>$out/check_$pid.err; echo "exit=$? (tier $tier, restricted to the harnesses the native sweep flagged: $hits)" >> $out/check_$pid.txt)
-  if ! grep -q "^VIOLATION" $out/check_$pid.txt && [ "$tier" = quick ]; then
-    # the flagged harnesses may belong to the thorough tier only (larger bounds, slow ones)
-    (cd $V && VERIF_ONLY="$hits" python3 check.py $pid --tier thorough > $out/check_${pid}_thorough.txt 2>$out/check_${pid}_thorough.err; echo "exit=$? (tier thorough, restricted to the harnesses the native sweep flagged: $hits)" >> $out/check_${pid}_thorough.txt)
-    if grep -q "^VIOLATION" $out/check_${pid}_thorough.txt; then cp $out/check_${pid}_thorough.txt $out/check_$pid.txt; fi
-  fi
-fi
-if [ -z "$hits" ] || { ! grep -q "^VIOLATION" $out/check_$pid.txt && grep -q "no obligation was generated" $out/check_$pid.txt; }; then
-  (cd $V && python3 check.py $pid --tier $tier > $out/check_$pid.txt 2>$out/check_$pid.err; echo "exit=$? (tier $tier, full check; native sweep flagged nothing the restricted runs could decide)" >> $out/check_$pid.txt)
-fi
-eif [ -n "$hits" ]; then
-  (cd $V && VERIF_ONLY="$hits" python3 check.py $pid --tier $tier > $out/check_$pid.txt 2>$out/check_$pid.err; echo "exit=$? (tier $tier, restricted to the harnesses the native sweep flagged: $hits)" >> $out/check_$pid.txt)
-  if ! grep -q "^VIOLATION" $out/check_$pid.txt && [ "$tier" = quick ]; then
-    # the flagged harnesses may belong to the thorough tier only (larger bounds, slow ones)
-    (cd $V && VERIF_ONLY="$hits" python3 check.py $pid --tier thorough > $out/check_${pid}_thorough.txt 2>$out/check_${pid}_thorough.err; echo "exit=$? (tier thorough, restricted to the harnesses the native sweep flagged: $hits)" >> $out/check_${pid}_thorough.txt)
-    if grep -q "^VIOLATION" $out/check_${pid}_thorough.txt; then cp $out/check_${pid}_thorough.txt $out/check_$pid.txt; fi
-  fi
-fi
-if [ -z "$hits" ] || { ! grep -q "^VIOLATION" $out/check_$pid.txt && grep -q "no obligation was generated" $out/check_$pid.txt; }; then
-  (cd $V && python3 check.py $pid --tier $tier > $out/check_$pid.txt 2>$out/check_$pid.err; echo "exit=$? (tier $tier, full check; native sweep flagged nothing the restricted runs could decide)" >> $out/check_$pid.txt)
-fi
-
-if [ -n "$hits" ]; then
-  (cd $V && VERIF_ONLY="$hits" python3 check.py $pid --tier $tier > $out/check_$pid.txt 2>$out/check_$pid.err; echo "exit=$? (tier $tier, restricted to the harnesses the native sweep flagged: $hits)" >> $out/check_$pid.txt)
-  if ! grep -q "^VIOLATION" $out/check_$pid.txt && [ "$tier" = quick ]; then
-    # the flagged harnesses may belong to the thorough tier only (larger bounds, slow ones)
-    (cd $V && VERIF_ONLY="$hits" python3 check.py $pid --tier thorough > $out/check_${pid}_thorough.txt 2>$out/check_${pid}_thorough.err; echo "exit=$? (tier thorough, restricted to the harnesses the native sweep flagged: $hits)" >> $out/check_${pid}_thorough.txt)
-    if grep -q "^VIOLATION" $out/check_${pid}_thorough.txt; then cp $out/check_${pid}_thorough.txt $out/check_$pid.txt; fi
-  fi
-fi
-if [ -z "$hits" ] || { ! grep -q "^VIOLATION" $out/check_$pid.txt && grep -q "no obligation was generated" $out/check_$pid.txt; }; then
-  (cd $V && python3 check.py $pid --tier $tier > $out/check_$pid.txt 2>$out/check_$pid.err; echo "exit=$? (tier $tier, full check; native sweep flagged nothing the restricted runs could decide)" >> $out/check_$pid.txt)
-fi
-#if [ -n "$hits" ]; then
-  (cd $V && VERIF_ONLY="$hits" python3 check.py $pid --tier $tier > $out/check_$pid.txt 2>$out/check_$pid.err; echo "exit=$? (tier $tier, restricted to the harnesses the native sweep flagged: $hits)" >> $out/check_$pid.txt)
-  if ! grep -q "^VIOLATION" $out/check_$pid.txt && [ "$tier" = quick ]; then
-    # the flagged harnesses may belong to the thorough tier only (larger bounds, slow ones)
-    (cd $V && VERIF_ONLY="$hits" python3 check.py $pid --tier thorough > $out/check_${pid}_thorough.txt 2>$out/check_${pid}_thorough.err; echo "exit=$? (tier thorough, restricted to the harnesses the native sweep flagged: $hits)" >> $out/check_${pid}_thorough.txt)
-    if grep -q "^VIOLATION" $out/check_${pid}_thorough.txt; then cp $out/check_${pid}_thorough.txt $out/check_$pid.txt; fi
-  fi
-fi
-if [ -z "$hits" ] || { ! grep -q "^VIOLATION" $out/check_$pid.txt && grep -q "no obligation was generated" $out/check_$pid.txt; }; then
-  (cd $V && python3 check.py $pid --tier $tier > $out/check_$pid.txt 2>$out/check_$pid.err; echo "exit=$? (tier $tier, full check; native sweep flagged nothing the restricted runs could decide)" >> $out/check_$pid.txt)
-fi
- if [ -n "$hits" ]; then
-  (cd $V && VERIF_ONLY="$hits" python3 check.py $pid --tier $tier > $out/check_$pid.txt 2>$out/check_$pid.err; echo "exit=$? (tier $tier, restricted to the harnesses the native sweep flagged: $hits)" >> $out/check_$pid.txt)
-  if ! grep -q "^VIOLATION" $out/check_$pid.txt && [ "$tier" = quick ]; then
-    # the flagged harnesses may belong to the thorough tier only (larger bounds, slow ones)
-    (cd $V && VERIF_ONLY="$hits" python3 check.py $pid --tier thorough > $out/check_${pid}_thorough.txt 2>$out/check_${pid}_thorough.err; echo "exit=$? (tier thorough, restricted to the harnesses the native sweep flagged: $hits)" >> $out/check_${pid}_thorough.txt)
-    if grep -q "^VIOLATION" $out/check_${pid}_thorough.txt; then cp $out/check_${pid}_thorough.txt $out/check_$pid.txt; fi
-  fi
-fi
-if [ -z "$hits" ] || { ! grep -q "^VIOLATION" $out/check_$pid.txt && grep -q "no obligation was generated" $out/check_$pid.txt; }; then
-  (cd $V && python3 check.py $pid --tier $tier > $out/check_$pid.txt 2>$out/check_$pid.err; echo "exit=$? (tier $tier, full check; native sweep flagged nothing the restricted runs could decide)" >> $out/check_$pid.txt)
-fi
-fif [ -n "$hits" ]; then
-  (cd $V && VERIF_ONLY="$hits" python3 check.py $pid --tier $tier > $out/check_$pid.txt 2>$out/check_$pid.err; echo "exit=$? (tier $tier, restricted to the harnesses the native sweep flagged: $hits)" >> $out/check_$pid.txt)
-  if ! grep -q "^VIOLATION" $out/check_$pid.txt && [ "$tier" = quick ]; then
-    # the flagged harnesses may belong to the thorough tier only (larger bounds, slow ones)
-    (cd $V && VERIF_ONLY="$hits" python3 check.py $pid --tier thorough > $out/check_${pid}_thorough.txt 2>$out/check_${pid}_thorough.err; echo "exit=$? (tier thorough, restricted to the harnesses the native sweep flagged: $hits)" >> $out/check_${pid}_thorough.txt)
-    if grep -q "^VIOLATION" $out/check_${pid}_thorough.txt; then cp $out/check_${pid}_thorough.txt $out/check_$pid.txt; fi
-  fi
-fi
-if [ -z "$hits" ] || { ! grep -q "^VIOLATION" $out/check_$pid.txt && grep -q "no obligation was generated" $out/check_$pid.txt; }; then
-  (cd $V && python3 check.py $pid --tier $tier > $out/check_$pid.txt 2>$out/check_$pid.err; echo "exit=$? (tier $tier, full check; native sweep flagged nothing the restricted runs could decide)" >> $out/check_$pid.txt)
-fi
-aif [ -n "$hits" ]; then
-  (cd $V && VERIF_ONLY="$hits" python3 check.py $pid --tier $tier > $out/check_$pid.txt 2>$out/check_$pid.err; echo "exit=$? (tier $tier, restricted to the harnesses the native sweep flagged: $hits)" >> $out/check_$pid.txt)
-  if ! grep -q "^VIOLATION" $out/check_$pid.txt && [ "$tier" = quick ]; then
-    # the flagged harnesses may belong to the thorough tier only (larger bounds, slow ones)
-    (cd $V && VERIF_ONLY="$hits" python3 check.py $pid --tier thorough > $out/check_${pid}_thorough.txt 2>$out/check_${pid}_thorough.err; echo "exit=$? (tier thorough, restricted to the harnesses the native sweep flagged: $hits)" >> $out/check_${pid}_thorough.txt)
-    if grep -q "^VIOLATION" $out/check_${pid}_thorough.txt; then cp $out/check_${pid}_thorough.txt $out/check_$pid.txt; fi
-  fi
-fi
-if [ -z "$hits" ] || { ! grep -q "^VIOLATION" $out/check_$pid.txt && grep -q "no obligation was generated" $out/check_$pid.txt; }; then
-  (cd $V && python3 check.py $pid --tier $tier > $out/check_$pid.txt 2>$out/check_$pid.err; echo "exit=$? (tier $tier, full check; native sweep flagged nothing the restricted runs could decide)" >> $out/check_$pid.txt)
-fi
-iif [ -n "$hits" ]; then
-  (cd $V && VERIF_ONLY="$hits" python3 check.py $pid --tier $tier > $out/check_$pid.txt 2>$out/check_$pid.err; echo "exit=$? (tier $tier, restricted to the harnesses the native sweep flagged: $hits)" >> $out/check_$pid.txt)
-  if ! grep -q "^VIOLATION" $out/check_$pid.txt && [ "$tier" = quick ]; then
-    # the flagged harnesses may belong to the thorough tier only (larger bounds, slow ones)
-    (cd $V && VERIF_ONLY="$hits" python3 check.py $pid --tier thorough > $out/check_${pid}_thorough.txt 2>$out/check_${pid}_thorough.err; echo "exit=$? (tier thorough, restricted to the harnesses the native sweep flagged: $hits)" >> $out/check_${pid}_thorough.txt)
-    if grep -q "^VIOLATION" $out/check_${pid}_thorough.txt; then cp $out/check_${pid}_thorough.txt $out/check_$pid.txt; fi
-  fi
-fi
-if [ -z "$hits" ] || { ! grep -q "^VIOLATION" $out/check_$pid.txt && grep -q "no obligation was generated" $out/check_$pid.txt; }; then
-  (cd $V && python3 check.py $pid --tier $tier > $out/check_$pid.txt 2>$out/check_$pid.err; echo "exit=$? (tier $tier, full check; native sweep flagged nothing the restricted runs could decide)" >> $out/check_$pid.txt)
-fi
-lif [ -n "$hits" ]; then
-  (cd $V && VERIF_ONLY="$hits" python3 check.py $pid --tier $tier > $out/check_$pid.txt 2>$out/check_$pid.err; echo "exit=$? (tier $tier, restricted to the harnesses the native sweep flagged: $hits)" >> $out/check_$pid.txt)
-  if ! grep -q "^VIOLATION" $out/check_$pid.txt && [ "$tier" = quick ]; then
-    # the flagged harnesses may belong to the thorough tier only (larger bounds, slow ones)
-    (cd $V && VERIF_ONLY="$hits" python3 check.py $pid --tier thorough > $out/check_${pid}_thorough.txt 2>$out/check_${pid}_thorough.err; echo "exit=$? (tier thorough, restricted to the harnesses the native sweep flagged: $hits)" >> $out/check_${pid}_thorough.txt)
-    if grep -q "^VIOLATION" $out/check_${pid}_thorough.txt; then cp $out/check_${pid}_thorough.txt $out/check_$pid.txt; fi
-  fi
-fi
-if [ -z "$hits" ] || { ! grep -q "^VIOLATION" $out/check_$pid.txt && grep -q "no obligation was generated" $out/check_$pid.txt; }; then
-  (cd $V && python3 check.py $pid --tier $tier > $out/check_$pid.txt 2>$out/check_$pid.err; echo "exit=$? (tier $tier, full check; native sweep flagged nothing the restricted runs could decide)" >> $out/check_$pid.txt)
-fi
-uif [ -n "$hits" ]; then
-  (cd $V && VERIF_ONLY="$hits" python3 check.py $pid --tier $tier > $out/check_$pid.txt 2>$out/check_$pid.err; echo "exit=$? (tier $tier, restricted to the harnesses the native sweep flagged: $hits)" >> $out/check_$pid.txt)
-  if ! grep -q "^VIOLATION" $out/check_$pid.txt && [ "$tier" = quick ]; then
-    # the flagged harnesses may belong to the thorough tier only (larger bounds, slow ones)
-    (cd $V && VERIF_ONLY="$hits" python3 check.py $pid --tier thorough > $out/check_${pid}_thorough.txt 2>$out/check_${pid}_thorough.err; echo "exit=$? (tier thorough, restricted to the harnesses the native sweep flagged: $hits)" >> $out/check_${pid}_thorough.txt)
-    if grep -q "^VIOLATION" $out/check_${pid}_thorough.txt; then cp $out/check_${pid}_thorough.txt $out/check_$pid.txt; fi
-  fi
-fi
-if [ -z "$hits" ] || { ! grep -q "^VIOLATION" $out/check_$pid.txt && grep -q "no obligation was generated" $out/check_$pid.txt; }; then
-  (cd $V && python3 check.py $pid --tier $tier > $out/check_$pid.txt 2>$out/check_$pid.err; echo "exit=$? (tier $tier, full check; native sweep flagged nothing the restricted runs could decide)" >> $out/check_$pid.txt)
-fi
-rif [ -n "$hits" ]; then
-  (cd $V && VERIF_ONLY="$hits" python3 check.py $pid --tier $tier > $out/check_$pid.txt 2>$out/check_$pid.err; echo "exit=$? (tier $tier, restricted to the harnesses the native sweep flagged: $hits)" >> $out/check_$pid.txt)
-  if ! grep -q "^VIOLATION" $out/check_$pid.txt && [ "$tier" = quick ]; then
-    # the flagged harnesses may belong to the thorough tier only (larger bounds, slow ones)
-    (cd $V && VERIF_ONLY="$hits" python3 check.py $pid --tier thorough > $out/check_${pid}_thorough.txt 2>$out/check_${pid}_thorough.err; echo "exit=$? (tier thorough, restricted to the harnesses the native sweep flagged: $hits)" >> $out/check_${pid}_thorough.txt)
-    if grep -q "^VIOLATION" $out/check_${pid}_thorough.txt; then cp $out/check_${pid}_thorough.txt $out/check_$pid.txt; fi
-  fi
-fi
-if [ -z "$hits" ] || { ! grep -q "^VIOLATION" $out/check_$pid.txt && grep -q "no obligation was generated" $out/check_$pid.txt; }; then
-  (cd $V && python3 check.py $pid --tier $tier > $out/check_$pid.txt 2>$out/check_$pid.err; echo "exit=$? (tier $tier, full check; native sweep flagged nothing the restricted runs could decide)" >> $out/check_$pid.txt)
-fi
-eif [ -n "$hits" ]; then
-  (cd $V && VERIF_ONLY="$hits" python3 check.py $pid --tier $tier > $out/check_$pid.txt 2>$out/check_$pid.err; echo "exit=$? (tier $tier, restricted to the harnesses the native sweep flagged: $hits)" >> $out/check_$pid.txt)
-  if ! grep -q "^VIOLATION" $out/check_$pid.txt && [ "$tier" = quick ]; then
-    # the flagged harnesses may belong to the thorough tier only (larger bounds, slow ones)
-    (cd $V && VERIF_ONLY="$hits" python3 check.py $pid --tier thorough > $out/check_${pid}_thorough.txt 2>$out/check_${pid}_thorough.err; echo "exit=$? (tier thorough, restricted to the harnesses the native sweep flagged: $hits)" >> $out/check_${pid}_thorough.txt)
-    if grep -q "^VIOLATION" $out/check_${pid}_thorough.txt; then cp $out/check_${pid}_thorough.txt $out/check_$pid.txt; fi
-  fi
-fi
-if [ -z "$hits" ] || { ! grep -q "^VIOLATION" $out/check_$pid.txt && grep -q "no obligation was generated" $out/check_$pid.txt; }; then
-  (cd $V && python3 check.py $pid --tier $tier > $out/check_$pid.txt 2>$out/check_$pid.err; echo "exit=$? (tier $tier, full check; native sweep flagged nothing the restricted runs could decide)" >> $out/check_$pid.txt)
-fi
-sif [ -n "$hits" ]; then
-  (cd $V && VERIF_ONLY="$hits" python3 check.py $pid --tier $tier > $out/check_$pid.txt 2>$out/check_$pid.err; echo "exit=$? (tier $tier, restricted to the harnesses the native sweep flagged: $hits)" >> $out/check_$pid.txt)
-  if ! grep -q "^VIOLATION" $out/check_$pid.txt && [ "$tier" = quick ]; then
-    # the flagged harnesses may belong to the thorough tier only (larger bounds, slow ones)
-    (cd $V && VERIF_ONLY="$hits" python3 check.py $pid --tier thorough > $out/check_${pid}_thorough.txt 2>$out/check_${pid}_thorough.err; echo "exit=$? (tier thorough, restricted to the harnesses the native sweep flagged: $hits)" >> $out/check_${pid}_thorough.txt)
-    if grep -q "^VIOLATION" $out/check_${pid}_thorough.txt; then cp $out/check_${pid}_thorough.txt $out/check_$pid.txt; fi
-  fi
-fi
-if [ -z "$hits" ] || { ! grep -q "^VIOLATION" $out/check_$pid.txt && grep -q "no obligation was generated" $out/check_$pid.txt; }; then
-  (cd $V && python3 check.py $pid --tier $tier > $out/check_$pid.txt 2>$out/check_$pid.err; echo "exit=$? (tier $tier, full check; native sweep flagged nothing the restricted runs could decide)" >> $out/check_$pid.txt)
-fi
- if [ -n "$hits" ]; then
-  (cd $V && VERIF_ONLY="$hits" python3 check.py $pid --tier $tier > $out/check_$pid.txt 2>$out/check_$pid.err; echo "exit=$? (tier $tier, restricted to the harnesses the native sweep flagged: $hits)" >> $out/check_$pid.txt)
-  if ! grep -q "^VIOLATION" $out/check_$pid.txt && [ "$tier" = quick ]; then
-    # the flagged harnesses may belong to the thorough tier only (larger bounds, slow ones)
-    (cd $V && VERIF_ONLY="$hits" python3 check.py $pid --tier thorough > $out/check_${pid}_thorough.txt 2>$out/check_${pid}_thorough.err; echo "exit=$? (tier thorough, restricted to the harnesses the native sweep flagged: $hits)" >> $out/check_${pid}_thorough.txt)
-    if grep -q "^VIOLATION" $out/check_${pid}_thorough.txt; then cp $out/check_${pid}_thorough.txt $out/check_$pid.txt; fi
-  fi
-fi
-if [ -z "$hits" ] || { ! grep -q "^VIOLATION" $out/check_$pid.txt && grep -q "no obligation was generated" $out/check_$pid.txt; }; then
-  (cd $V && python3 check.py $pid --tier $tier > $out/check_$pid.txt 2>$out/check_$pid.err; echo "exit=$? (tier $tier, full check; native sweep flagged nothing the restricted runs could decide)" >> $out/check_$pid.txt)
-fi
-oif [ -n "$hits" ]; then
-  (cd $V && VERIF_ONLY="$hits" python3 check.py $pid --tier $tier > $out/check_$pid.txt 2>$out/check_$pid.err; echo "exit=$? (tier $tier, restricted to the harnesses the native sweep flagged: $hits)" >> $out/check_$pid.txt)
-  if ! grep -q "^VIOLATION" $out/check_$pid.txt && [ "$tier" = quick ]; then
-    # the flagged harnesses may belong to the thorough tier only (larger bounds, slow ones)
-    (cd $V && VERIF_ONLY="$hits" python3 check.py $pid --tier thorough > $out/check_${pid}_thorough.txt 2>$out/check_${pid}_thorough.err; echo "exit=$? (tier thorough, restricted to the harnesses the native sweep flagged: $hits)" >> $out/check_${pid}_thorough.txt)
-    if grep -q "^VIOLATION" $out/check_${pid}_thorough.txt; then cp $out/check_${pid}_thorough.txt $out/check_$pid.txt; fi
-  fi
-fi
-if [ -z "$hits" ] || { ! grep -q "^VIOLATION" $out/check_$pid.txt && grep -q "no obligation was generated" $out/check_$pid.txt; }; then
-  (cd $V && python3 check.py $pid --tier $tier > $out/check_$pid.txt 2>$out/check_$pid.err; echo "exit=$? (tier $tier, full check; native sweep flagged nothing the restricted runs could decide)" >> $out/check_$pid.txt)
-fi
-fif [ -n "$hits" ]; then
-  (cd $V && VERIF_ONLY="$hits" python3 check.py $pid --tier $tier > $out/check_$pid.txt 2>$out/check_$pid.err; echo "exit=$? (tier $tier, restricted to the harnesses the native sweep flagged: $hits)" >> $out/check_$pid.txt)
-  if ! grep -q "^VIOLATION" $out/check_$pid.txt && [ "$tier" = quick ]; then
-    # the flagged harnesses may belong to the thorough tier only (larger bounds, slow ones)
-    (cd $V && VERIF_ONLY="$hits" python3 check.py $pid --tier thorough > $out/check_${pid}_thorough.txt 2>$out/check_${pid}_thorough.err; echo "exit=$? (tier thorough, restricted to the harnesses the native sweep flagged: $hits)" >> $out/check_${pid}_thorough.txt)
-    if grep -q "^VIOLATION" $out/check_${pid}_thorough.txt; then cp $out/check_${pid}_thorough.txt $out/check_$pid.txt; fi
-  fi
-fi
-if [ -z "$hits" ] || { ! grep -q "^VIOLATION" $out/check_$pid.txt && grep -q "no obligation was generated" $out/check_$pid.txt; }; then
-  (cd $V && python3 check.py $pid --tier $tier > $out/check_$pid.txt 2>$out/check_$pid.err; echo "exit=$? (tier $tier, full check; native sweep flagged nothing the restricted runs could decide)" >> $out/check_$pid.txt)
-fi
- if [ -n "$hits" ]; then
-  (cd $V && VERIF_ONLY="$hits" python3 check.py $pid --tier $tier > $out/check_$pid.txt 2>$out/check_$pid.err; echo "exit=$? (tier $tier, restricted to the harnesses the native sweep flagged: $hits)" >> $out/check_$pid.txt)
-  if ! grep -q "^VIOLATION" $out/check_$pid.txt && [ "$tier" = quick ]; then
-    # the flagged harnesses may belong to the thorough tier only (larger bounds, slow ones)
-    (cd $V && VERIF_ONLY="$hits" python3 check.py $pid --tier thorough > $out/check_${pid}_thorough.txt 2>$out/check_${pid}_thorough.err; echo "exit=$? (tier thorough, restricted to the harnesses the native sweep flagged: $hits)" >> $out/check_${pid}_thorough.txt)
-    if grep -q "^VIOLATION" $out/check_${pid}_thorough.txt; then cp $out/check_${pid}_thorough.txt $out/check_$pid.txt; fi
-  fi
-fi
-if [ -z "$hits" ] || { ! grep -q "^VIOLATION" $out/check_$pid.txt && grep -q "no obligation was generated" $out/check_$pid.txt; }; then
-  (cd $V && python3 check.py $pid --tier $tier > $out/check_$pid.txt 2>$out/check_$pid.err; echo "exit=$? (tier $tier, full check; native sweep flagged nothing the restricted runs could decide)" >> $out/check_$pid.txt)
-fi
-tif [ -n "$hits" ]; then
-  (cd $V && VERIF_ONLY="$hits" python3 check.py $pid --tier $tier > $out/check_$pid.txt 2>$out/check_$pid.err; echo "exit=$? (tier $tier, restricted to the harnesses the native sweep flagged: $hits)" >> $out/check_$pid.txt)
-  if ! grep -q "^VIOLATION" $out/check_$pid.txt && [ "$tier" = quick ]; then
-    # the flagged harnesses may belong to the thorough tier only (larger bounds, slow ones)
-    (cd $V && VERIF_ONLY="$hits" python3 check.py $pid --tier thorough > $out/check_${pid}_thorough.txt 2>$out/check_${pid}_thorough.err; echo "exit=$? (tier thorough, restricted to the harnesses the native sweep flagged: $hits)" >> $out/check_${pid}_thorough.txt)
-    if grep -q "^VIOLATION" $out/check_${pid}_thorough.txt; then cp $out/check_${pid}_thorough.txt $out/check_$pid.txt; fi
-  fi
-fi
-if [ -z "$hits" ] || { ! grep -q "^VIOLATION" $out/check_$pid.txt && grep -q "no obligation was generated" $out/check_$pid.txt; }; then
-  (cd $V && python3 check.py $pid --tier $tier > $out/check_$pid.txt 2>$out/check_$pid.err; echo "exit=$? (tier $tier, full check; native sweep flagged nothing the restricted runs could decide)" >> $out/check_$pid.txt)
-fi
-hif [ -n "$hits" ]; then
-  (cd $V && VERIF_ONLY="$hits" python3 check.py $pid --tier $tier > $out/check_$pid.txt 2>$out/check_$pid.err; echo "exit=$? (tier $tier, restricted to the harnesses the native sweep flagged: $hits)" >> $out/check_$pid.txt)
-  if ! grep -q "^VIOLATION" $out/check_$pid.txt && [ "$tier" = quick ]; then
-    # the flagged harnesses may belong to the thorough tier only (larger bounds, slow ones)
-    (cd $V && VERIF_ONLY="$hits" python3 check.py $pid --tier thorough > $out/check_${pid}_thorough.txt 2>$out/check_${pid}_thorough.err; echo "exit=$? (tier thorough, restricted to the harnesses the native sweep flagged: $hits)" >> $out/check_${pid}_thorough.txt)
-    if grep -q "^VIOLATION" $out/check_${pid}_thorough.txt; then cp $out/check_${pid}_thorough.txt $out/check_$pid.txt; fi
-  fi
-fi
-if [ -z "$hits" ] || { ! grep -q "^VIOLATION" $out/check_$pid.txt && grep -q "no obligation was generated" $out/check_$pid.txt; }; then
-  (cd $V && python3 check.py $pid --tier $tier > $out/check_$pid.txt 2>$out/check_$pid.err; echo "exit=$? (tier $tier, full check; native sweep flagged nothing the restricted runs could decide)" >> $out/check_$pid.txt)
-fi
-eif [ -n "$hits" ]; then
-  (cd $V && VERIF_ONLY="$hits" python3 check.py $pid --tier $tier > $out/check_$pid.txt 2>$out/check_$pid.err; echo "exit=$? (tier $tier, restricted to the harnesses the native sweep flagged: $hits)" >> $out/check_$pid.txt)
-  if ! grep -q "^VIOLATION" $out/check_$pid.txt && [ "$tier" = quick ]; then
-    # the flagged harnesses may belong to the thorough tier only (larger bounds, slow ones)
-    (cd $V && VERIF_ONLY="$hits" python3 check.py $pid --tier thorough > $out/check_${pid}_thorough.txt 2>$out/check_${pid}_thorough.err; echo "exit=$? (tier thorough, restricted to the harnesses the native sweep flagged: $hits)" >> $out/check_${pid}_thorough.txt)
-    if grep -q "^VIOLATION" $out/check_${pid}_thorough.txt; then cp $out/check_${pid}_thorough.txt $out/check_$pid.txt; fi
-  fi
-fi
-if [ -z "$hits" ] || { ! grep -q "^VIOLATION" $out/check_$pid.txt && grep -q "no obligation was generated" $out/check_$pid.txt; }; then
-  (cd $V && python3 check.py $pid --tier $tier > $out/check_$pid.txt 2>$out/check_$pid.err; echo "exit=$? (tier $tier, full check; native sweep flagged nothing the restricted runs could decide)" >> $out/check_$pid.txt)
-fi
- if [ -n "$hits" ]; then
-  (cd $V && VERIF_ONLY="$hits" python3 check.py $pid --tier $tier > $out/check_$pid.txt 2>$out/check_$pid.err; echo "exit=$? (tier $tier, restricted to the harnesses the native sweep flagged: $hits)" >> $out/check_$pid.txt)
-  if ! grep -q "^VIOLATION" $out/check_$pid.txt && [ "$tier" = quick ]; then
-    # the flagged harnesses may belong to the thorough tier only (larger bounds, slow ones)
-    (cd $V && VERIF_ONLY="$hits" python3 check.py $pid --tier thorough > $out/check_${pid}_thorough.txt 2>$out/check_${pid}_thorough.err; echo "exit=$? (tier thorough, restricted to the harnesses the native sweep flagged: $hits)" >> $out/check_${pid}_thorough.txt)
-    if grep -q "^VIOLATION" $out/check_${pid}_thorough.txt; then cp $out/check_${pid}_thorough.txt $out/check_$pid.txt; fi
-  fi
-fi
-if [ -z "$hits" ] || { ! grep -q "^VIOLATION" $out/check_$pid.txt && grep -q "no obligation was generated" $out/check_$pid.txt; }; then
-  (cd $V && python3 check.py $pid --tier $tier > $out/check_$pid.txt 2>$out/check_$pid.err; echo "exit=$? (tier $tier, full check; native sweep flagged nothing the restricted runs could decide)" >> $out/check_$pid.txt)
-fi
-uif [ -n "$hits" ]; then
-  (cd $V && VERIF_ONLY="$hits" python3 check.py $pid --tier $tier > $out/check_$pid.txt 2>$out/check_$pid.err; echo "exit=$? (tier $tier, restricted to the harnesses the native sweep flagged: $hits)" >> $out/check_$pid.txt)
-  if ! grep -q "^VIOLATION" $out/check_$pid.txt && [ "$tier" = quick ]; then
-    # the flagged harnesses may belong to the thorough tier only (larger bounds, slow ones)
-    (cd $V && VERIF_ONLY="$hits" python3 check.py $pid --tier thorough > $out/check_${pid}_thorough.txt 2>$out/check_${pid}_thorough.err; echo "exit=$? (tier thorough, restricted to the harnesses the native sweep flagged: $hits)" >> $out/check_${pid}_thorough.txt)
-    if grep -q "^VIOLATION" $out/check_${pid}_thorough.txt; then cp $out/check_${pid}_thorough.txt $out/check_$pid.txt; fi
-  fi
-fi
-if [ -z "$hits" ] || { ! grep -q "^VIOLATION" $out/check_$pid.txt && grep -q "no obligation was generated" $out/check_$pid.txt; }; then
-  (cd $V && python3 check.py $pid --tier $tier > $out/check_$pid.txt 2>$out/check_$pid.err; echo "exit=$? (tier $tier, full check; native sweep flagged nothing the restricted runs could decide)" >> $out/check_$pid.txt)
-fi
-nif [ -n "$hits" ]; then
-  (cd $V && VERIF_ONLY="$hits" python3 check.py $pid --tier $tier > $out/check_$pid.txt 2>$out/check_$pid.err; echo "exit=$? (tier $tier, restricted to the harnesses the native sweep flagged: $hits)" >> $out/check_$pid.txt)
-  if ! grep -q "^VIOLATION" $out/check_$pid.txt && [ "$tier" = quick ]; then
-    # the flagged harnesses may belong to the thorough tier only (larger bounds, slow ones)
-    (cd $V && VERIF_ONLY="$hits" python3 check.py $pid --tier thorough > $out/check_${pid}_thorough.txt 2>$out/check_${pid}_thorough.err; echo "exit=$? (tier thorough, restricted to the harnesses the native sweep flagged: $hits)" >> $out/check_${pid}_thorough.txt)
-    if grep -q "^VIOLATION" $out/check_${pid}_thorough.txt; then cp $out/check_${pid}_thorough.txt $out/check_$pid.txt; fi
-  fi
-fi
-if [ -z "$hits" ] || { ! grep -q "^VIOLATION" $out/check_$pid.txt && grep -q "no obligation was generated" $out/check_$pid.txt; }; then
-  (cd $V && python3 check.py $pid --tier $tier > $out/check_$pid.txt 2>$out/check_$pid.err; echo "exit=$? (tier $tier, full check; native sweep flagged nothing the restricted runs could decide)" >> $out/check_$pid.txt)
-fi
-cif [ -n "$hits" ]; then
-  (cd $V && VERIF_ONLY="$hits" python3 check.py $pid --tier $tier > $out/check_$pid.txt 2>$out/check_$pid.err; echo "exit=$? (tier $tier, restricted to the harnesses the native sweep flagged: $hits)" >> $out/check_$pid.txt)
-  if ! grep -q "^VIOLATION" $out/check_$pid.txt && [ "$tier" = quick ]; then
-    # the flagged harnesses may belong to the thorough tier only (larger bounds, slow ones)
-    (cd $V && VERIF_ONLY="$hits" python3 check.py $pid --tier thorough > $out/check_${pid}_thorough.txt 2>$out/check_${pid}_thorough.err; echo "exit=$? (tier thorough, restricted to the harnesses the native sweep flagged: $hits)" >> $out/check_${pid}_thorough.txt)
-    if grep -q "^VIOLATION" $out/check_${pid}_thorough.txt; then cp $out/check_${pid}_thorough.txt $out/check_$pid.txt; fi
-  fi
-fi
-if [ -z "$hits" ] || { ! grep -q "^VIOLATION" $out/check_$pid.txt && grep -q "no obligation was generated" $out/check_$pid.txt; }; then
-  (cd $V && python3 check.py $pid --tier $tier > $out/check_$pid.txt 2>$out/check_$pid.err; echo "exit=$? (tier $tier, full check; native sweep flagged nothing the restricted runs could decide)" >> $out/check_$pid.txt)
-fi
-hif [ -n "$hits" ]; then
-  (cd $V && VERIF_ONLY="$hits" python3 check.py $pid --tier $tier > $out/check_$pid.txt 2>$out/check_$pid.err; echo "exit=$? (tier $tier, restricted to the harnesses the native sweep flagged: $hits)" >> $out/check_$pid.txt)
-  if ! grep -q "^VIOLATION" $out/check_$pid.txt && [ "$tier" = quick ]; then
-    # the flagged harnesses may belong to the thorough tier only (larger bounds, slow ones)
-    (cd $V && VERIF_ONLY="$hits" python3 check.py $pid --tier thorough > $out/check_${pid}_thorough.txt 2>$out/check_${pid}_thorough.err; echo "exit=$? (tier thorough, restricted to the harnesses the native sweep flagged: $hits)" >> $out/check_${pid}_thorough.txt)
-    if grep -q "^VIOLATION" $out/check_${pid}_thorough.txt; then cp $out/check_${pid}_thorough.txt $out/check_$pid.txt; fi
-  fi
-fi
-if [ -z "$hits" ] || { ! grep -q "^VIOLATION" $out/check_$pid.txt && grep -q "no obligation was generated" $out/check_$pid.txt; }; then
-  (cd $V && python3 check.py $pid --tier $tier > $out/check_$pid.txt 2>$out/check_$pid.err; echo "exit=$? (tier $tier, full check; native sweep flagged nothing the restricted runs could decide)" >> $out/check_$pid.txt)
-fi
-aif [ -n "$hits" ]; then
-  (cd $V && VERIF_ONLY="$hits" python3 check.py $pid --tier $tier > $out/check_$pid.txt 2>$out/check_$pid.err; echo "exit=$? (tier $tier, restricted to the harnesses the native sweep flagged: $hits)" >> $out/check_$pid.txt)
-  if ! grep -q "^VIOLATION" $out/check_$pid.txt && [ "$tier" = quick ]; then
-    # the flagged harnesses may belong to the thorough tier only (larger bounds, slow ones)
-    (cd $V && VERIF_ONLY="$hits" python3 check.py $pid --tier thorough > $out/check_${pid}_thorough.txt 2>$out/check_${pid}_thorough.err; echo "exit=$? (tier thorough, restricted to the harnesses the native sweep flagged: $hits)" >> $out/check_${pid}_thorough.txt)
-    if grep -q "^VIOLATION" $out/check_${pid}_thorough.txt; then cp $out/check_${pid}_thorough.txt $out/check_$pid.txt; fi
-  fi
-fi
-if [ -z "$hits" ] || { ! grep -q "^VIOLATION" $out/check_$pid.txt && grep -q "no obligation was generated" $out/check_$pid.txt; }; then
-  (cd $V && python3 check.py $pid --tier $tier > $out/check_$pid.txt 2>$out/check_$pid.err; echo "exit=$? (tier $tier, full check; native sweep flagged nothing the restricted runs could decide)" >> $out/check_$pid.txt)
-fi
-nif [ -n "$hits" ]; then
-  (cd $V && VERIF_ONLY="$hits" python3 check.py $pid --tier $tier > $out/check_$pid.txt 2>$out/check_$pid.err; echo "exit=$? (tier $tier, restricted to the harnesses the native sweep flagged: $hits)" >> $out/check_$pid.txt)
-  if ! grep -q "^VIOLATION" $out/check_$pid.txt && [ "$tier" = quick ]; then
-    # the flagged harnesses may belong to the thorough tier only (larger bounds, slow ones)
-    (cd $V && VERIF_ONLY="$hits" python3 check.py $pid --tier thorough > $out/check_${pid}_thorough.txt 2>$out/check_${pid}_thorough.err; echo "exit=$? (tier thorough, restricted to the harnesses the native sweep flagged: $hits)" >> $out/check_${pid}_thorough.txt)
-    if grep -q "^VIOLATION" $out/check_${pid}_thorough.txt; then cp $out/check_${pid}_thorough.txt $out/check_$pid.txt; fi
-  fi
-fi
-if [ -z "$hits" ] || { ! grep -q "^VIOLATION" $out/check_$pid.txt && grep -q "no obligation was generated" $out/check_$pid.txt; }; then
-  (cd $V && python3 check.py $pid --tier $tier > $out/check_$pid.txt 2>$out/check_$pid.err; echo "exit=$? (tier $tier, full check; native sweep flagged nothing the restricted runs could decide)" >> $out/check_$pid.txt)
-fi
-gif [ -n "$hits" ]; then
-  (cd $V && VERIF_ONLY="$hits" python3 check.py $pid --tier $tier > $out/check_$pid.txt 2>$out/check_$pid.err; echo "exit=$? (tier $tier, restricted to the harnesses the native sweep flagged: $hits)" >> $out/check_$pid.txt)
-  if ! grep -q "^VIOLATION" $out/check_$pid.txt && [ "$tier" = quick ]; then
-    # the flagged harnesses may belong to the thorough tier only (larger bounds, slow ones)
-    (cd $V && VERIF_ONLY="$hits" python3 check.py $pid --tier thorough > $out/check_${pid}_thorough.txt 2>$out/check_${pid}_thorough.err; echo "exit=$? (tier thorough, restricted to the harnesses the native sweep flagged: $hits)" >> $out/check_${pid}_thorough.txt)
-    if grep -q "^VIOLATION" $out/check_${pid}_thorough.txt; then cp $out/check_${pid}_thorough.txt $out/check_$pid.txt; fi
-  fi
-fi
-if [ -z "$hits" ] || { ! grep -q "^VIOLATION" $out/check_$pid.txt && grep -q "no obligation was generated" $out/check_$pid.txt; }; then
-  (cd $V && python3 check.py $pid --tier $tier > $out/check_$pid.txt 2>$out/check_$pid.err; echo "exit=$? (tier $tier, full check; native sweep flagged nothing the restricted runs could decide)" >> $out/check_$pid.txt)
-fi
-eif [ -n "$hits" ]; then
-  (cd $V && VERIF_ONLY="$hits" python3 check.py $pid --tier $tier > $out/check_$pid.txt 2>$out/check_$pid.err; echo "exit=$? (tier $tier, restricted to the harnesses the native sweep flagged: $hits)" >> $out/check_$pid.txt)
-  if ! grep -q "^VIOLATION" $out/check_$pid.txt && [ "$tier" = quick ]; then
-    # the flagged harnesses may belong to the thorough tier only (larger bounds, slow ones)
-    (cd $V && VERIF_ONLY="$hits" python3 check.py $pid --tier thorough > $out/check_${pid}_thorough.txt 2>$out/check_${pid}_thorough.err; echo "exit=$? (tier thorough, restricted to the harnesses the native sweep flagged: $hits)" >> $out/check_${pid}_thorough.txt)
-    if grep -q "^VIOLATION" $out/check_${pid}_thorough.txt; then cp $out/check_${pid}_thorough.txt $out/check_$pid.txt; fi
-  fi
-fi
-if [ -z "$hits" ] || { ! grep -q "^VIOLATION" $out/check_$pid.txt && grep -q "no obligation was generated" $out/check_$pid.txt; }; then
-  (cd $V && python3 check.py $pid --tier $tier > $out/check_$pid.txt 2>$out/check_$pid.err; echo "exit=$? (tier $tier, full check; native sweep flagged nothing the restricted runs could decide)" >> $out/check_$pid.txt)
-fi
-dif [ -n "$hits" ]; then
-  (cd $V && VERIF_ONLY="$hits" python3 check.py $pid --tier $tier > $out/check_$pid.txt 2>$out/check_$pid.err; echo "exit=$? (tier $tier, restricted to the harnesses the native sweep flagged: $hits)" >> $out/check_$pid.txt)
-  if ! grep -q "^VIOLATION" $out/check_$pid.txt && [ "$tier" = quick ]; then
-    # the flagged harnesses may belong to the thorough tier only (larger bounds, slow ones)
-    (cd $V && VERIF_ONLY="$hits" python3 check.py $pid --tier thorough > $out/check_${pid}_thorough.txt 2>$out/check_${pid}_thorough.err; echo "exit=$? (tier thorough, restricted to the harnesses the native sweep flagged: $hits)" >> $out/check_${pid}_thorough.txt)
-    if grep -q "^VIOLATION" $out/check_${pid}_thorough.txt; then cp $out/check_${pid}_thorough.txt $out/check_$pid.txt; fi
-  fi
-fi
-if [ -z "$hits" ] || { ! grep -q "^VIOLATION" $out/check_$pid.txt && grep -q "no obligation was generated" $out/check_$pid.txt; }; then
-  (cd $V && python3 check.py $pid --tier $tier > $out/check_$pid.txt 2>$out/check_$pid.err; echo "exit=$? (tier $tier, full check; native sweep flagged nothing the restricted runs could decide)" >> $out/check_$pid.txt)
-fi
- if [ -n "$hits" ]; then
-  (cd $V && VERIF_ONLY="$hits" python3 check.py $pid --tier $tier > $out/check_$pid.txt 2>$out/check_$pid.err; echo "exit=$? (tier $tier, restricted to the harnesses the native sweep flagged: $hits)" >> $out/check_$pid.txt)
-  if ! grep -q "^VIOLATION" $out/check_$pid.txt && [ "$tier" = quick ]; then
-    # the flagged harnesses may belong to the thorough tier only (larger bounds, slow ones)
-    (cd $V && VERIF_ONLY="$hits" python3 check.py $pid --tier thorough > $out/check_${pid}_thorough.txt 2>$out/check_${pid}_thorough.err; echo "exit=$? (tier thorough, restricted to the harnesses the native sweep flagged: $hits)" >> $out/check_${pid}_thorough.txt)
-    if grep -q "^VIOLATION" $out/check_${pid}_thorough.txt; then cp $out/check_${pid}_thorough.txt $out/check_$pid.txt; fi
-  fi
-fi
-if [ -z "$hits" ] || { ! grep -q "^VIOLATION" $out/check_$pid.txt && grep -q "no obligation was generated" $out/check_$pid.txt; }; then
-  (cd $V && python3 check.py $pid --tier $tier > $out/check_$pid.txt 2>$out/check_$pid.err; echo "exit=$? (tier $tier, full check; native sweep flagged nothing the restricted runs could decide)" >> $out/check_$pid.txt)
-fi
-tif [ -n "$hits" ]; then
-  (cd $V && VERIF_ONLY="$hits" python3 check.py $pid --tier $tier > $out/check_$pid.txt 2>$out/check_$pid.err; echo "exit=$? (tier $tier, restricted to the harnesses the native sweep flagged: $hits)" >> $out/check_$pid.txt)
-  if ! grep -q "^VIOLATION" $out/check_$pid.txt && [ "$tier" = quick ]; then
-    # the flagged harnesses may belong to the thorough tier only (larger bounds, slow ones)
-    (cd $V && VERIF_ONLY="$hits" python3 check.py $pid --tier thorough > $out/check_${pid}_thorough.txt 2>$out/check_${pid}_thorough.err; echo "exit=$? (tier thorough, restricted to the harnesses the native sweep flagged: $hits)" >> $out/check_${pid}_thorough.txt)
-    if grep -q "^VIOLATION" $out/check_${pid}_thorough.txt; then cp $out/check_${pid}_thorough.txt $out/check_$pid.txt; fi
-  fi
-fi
-if [ -z "$hits" ] || { ! grep -q "^VIOLATION" $out/check_$pid.txt && grep -q "no obligation was generated" $out/check_$pid.txt; }; then
-  (cd $V && python3 check.py $pid --tier $tier > $out/check_$pid.txt 2>$out/check_$pid.err; echo "exit=$? (tier $tier, full check; native sweep flagged nothing the restricted runs could decide)" >> $out/check_$pid.txt)
-fi
-rif [ -n "$hits" ]; then
-  (cd $V && VERIF_ONLY="$hits" python3 check.py $pid --tier $tier > $out/check_$pid.txt 2>$out/check_$pid.err; echo "exit=$? (tier $tier, restricted to the harnesses the native sweep flagged: $hits)" >> $out/check_$pid.txt)
-  if ! grep -q "^VIOLATION" $out/check_$pid.txt && [ "$tier" = quick ]; then
-    # the flagged harnesses may belong to the thorough tier only (larger bounds, slow ones)
-    (cd $V && VERIF_ONLY="$hits" python3 check.py $pid --tier thorough > $out/check_${pid}_thorough.txt 2>$out/check_${pid}_thorough.err; echo "exit=$? (tier thorough, restricted to the harnesses the native sweep flagged: $hits)" >> $out/check_${pid}_thorough.txt)
-    if grep -q "^VIOLATION" $out/check_${pid}_thorough.txt; then cp $out/check_${pid}_thorough.txt $out/check_$pid.txt; fi
-  fi
-fi
-if [ -z "$hits" ] || { ! grep -q "^VIOLATION" $out/check_$pid.txt && grep -q "no obligation was generated" $out/check_$pid.txt; }; then
-  (cd $V && python3 check.py $pid --tier $tier > $out/check_$pid.txt 2>$out/check_$pid.err; echo "exit=$? (tier $tier, full check; native sweep flagged nothing the restricted runs could decide)" >> $out/check_$pid.txt)
-fi
-eif [ -n "$hits" ]; then
-  (cd $V && VERIF_ONLY="$hits" python3 check.py $pid --tier $tier > $out/check_$pid.txt 2>$out/check_$pid.err; echo "exit=$? (tier $tier, restricted to the harnesses the native sweep flagged: $hits)" >> $out/check_$pid.txt)
-  if ! grep -q "^VIOLATION" $out/check_$pid.txt && [ "$tier" = quick ]; then
-    # the flagged harnesses may belong to the thorough tier only (larger bounds, slow ones)
-    (cd $V && VERIF_ONLY="$hits" python3 check.py $pid --tier thorough > $out/check_${pid}_thorough.txt 2>$out/check_${pid}_thorough.err; echo "exit=$? (tier thorough, restricted to the harnesses the native sweep flagged: $hits)" >> $out/check_${pid}_thorough.txt)
-    if grep -q "^VIOLATION" $out/check_${pid}_thorough.txt; then cp $out/check_${pid}_thorough.txt $out/check_$pid.txt; fi
-  fi
-fi
-if [ -z "$hits" ] || { ! grep -q "^VIOLATION" $out/check_$pid.txt && grep -q "no obligation was generated" $out/check_$pid.txt; }; then
-  (cd $V && python3 check.py $pid --tier $tier > $out/check_$pid.txt 2>$out/check_$pid.err; echo "exit=$? (tier $tier, full check; native sweep flagged nothing the restricted runs could decide)" >> $out/check_$pid.txt)
-fi
-eif [ -n "$hits" ]; then
-  (cd $V && VERIF_ONLY="$hits" python3 check.py $pid --tier $tier > $out/check_$pid.txt 2>$out/check_$pid.err; echo "exit=$? (tier $tier, restricted to the harnesses the native sweep flagged: $hits)" >> $out/check_$pid.txt)
-  if ! grep -q "^VIOLATION" $out/check_$pid.txt && [ "$tier" = quick ]; then
-    # the flagged harnesses may belong to the thorough tier only (larger bounds, slow ones)
-    (cd $V && VERIF_ONLY="$hits" python3 check.py $pid --tier thorough > $out/check_${pid}_thorough.txt 2>$out/check_${pid}_thorough.err; echo "exit=$? (tier thorough, restricted to the harnesses the native sweep flagged: $hits)" >> $out/check_${pid}_thorough.txt)
-    if grep -q "^VIOLATION" $out/check_${pid}_thorough.txt; then cp $out/check_${pid}_thorough.txt $out/check_$pid.txt; fi
-  fi
-fi
-if [ -z "$hits" ] || { ! grep -q "^VIOLATION" $out/check_$pid.txt && grep -q "no obligation was generated" $out/check_$pid.txt; }; then
-  (cd $V && python3 check.py $pid --tier $tier > $out/check_$pid.txt 2>$out/check_$pid.err; echo "exit=$? (tier $tier, full check; native sweep flagged nothing the restricted runs could decide)" >> $out/check_$pid.txt)
-fi
- if [ -n "$hits" ]; then
-  (cd $V && VERIF_ONLY="$hits" python3 check.py $pid --tier $tier > $out/check_$pid.txt 2>$out/check_$pid.err; echo "exit=$? (tier $tier, restricted to the harnesses the native sweep flagged: $hits)" >> $out/check_$pid.txt)
-  if ! grep -q "^VIOLATION" $out/check_$pid.txt && [ "$tier" = quick ]; then
-    # the flagged harnesses may belong to the thorough tier only (larger bounds, slow ones)
-    (cd $V && VERIF_ONLY="$hits" python3 check.py $pid --tier thorough > $out/check_${pid}_thorough.txt 2>$out/check_${pid}_thorough.err; echo "exit=$? (tier thorough, restricted to the harnesses the native sweep flagged: $hits)" >> $out/check_${pid}_thorough.txt)
-    if grep -q "^VIOLATION" $out/check_${pid}_thorough.txt; then cp $out/check_${pid}_thorough.txt $out/check_$pid.txt; fi
-  fi
-fi
-if [ -z "$hits" ] || { ! grep -q "^VIOLATION" $out/check_$pid.txt && grep -q "no obligation was generated" $out/check_$pid.txt; }; then
-  (cd $V && python3 check.py $pid --tier $tier > $out/check_$pid.txt 2>$out/check_$pid.err; echo "exit=$? (tier $tier, full check; native sweep flagged nothing the restricted runs could decide)" >> $out/check_$pid.txt)
-fi
-(if [ -n "$hits" ]; then
-  (cd $V && VERIF_ONLY="$hits" python3 check.py $pid --tier $tier > $out/check_$pid.txt 2>$out/check_$pid.err; echo "exit=$? (tier $tier, restricted to the harnesses the native sweep flagged: $hits)" >> $out/check_$pid.txt)
-  if ! grep -q "^VIOLATION" $out/check_$pid.txt && [ "$tier" = quick ]; then
-    # the flagged harnesses may belong to the thorough tier only (larger bounds, slow ones)
-    (cd $V && VERIF_ONLY="$hits" python3 check.py $pid --tier thorough > $out/check_${pid}_thorough.txt 2>$out/check_${pid}_thorough.err; echo "exit=$? (tier thorough, restricted to the harnesses the native sweep flagged: $hits)" >> $out/check_${pid}_thorough.txt)
-    if grep -q "^VIOLATION" $out/check_${pid}_thorough.txt; then cp $out/check_${pid}_thorough.txt $out/check_$pid.txt; fi
-  fi
-fi
-if [ -z "$hits" ] || { ! grep -q "^VIOLATION" $out/check_$pid.txt && grep -q "no obligation was generated" $out/check_$pid.txt; }; then
-  (cd $V && python3 check.py $pid --tier $tier > $out/check_$pid.txt 2>$out/check_$pid.err; echo "exit=$? (tier $tier, full check; native sweep flagged nothing the restricted runs could decide)" >> $out/check_$pid.txt)
-fi
-tif [ -n "$hits" ]; then
-  (cd $V && VERIF_ONLY="$hits" python3 check.py $pid --tier $tier > $out/check_$pid.txt 2>$out/check_$pid.err; echo "exit=$? (tier $tier, restricted to the harnesses the native sweep flagged: $hits)" >> $out/check_$pid.txt)
-  if ! grep -q "^VIOLATION" $out/check_$pid.txt && [ "$tier" = quick ]; then
-    # the flagged harnesses may belong to the thorough tier only (larger bounds, slow ones)
-    (cd $V && VERIF_ONLY="$hits" python3 check.py $pid --tier thorough > $out/check_${pid}_thorough.txt 2>$out/check_${pid}_thorough.err; echo "exit=$? (tier thorough, restricted to the harnesses the native sweep flagged: $hits)" >> $out/check_${pid}_thorough.txt)
-    if grep -q "^VIOLATION" $out/check_${pid}_thorough.txt; then cp $out/check_${pid}_thorough.txt $out/check_$pid.txt; fi
-  fi
-fi
-if [ -z "$hits" ] || { ! grep -q "^VIOLATION" $out/check_$pid.txt && grep -q "no obligation was generated" $out/check_$pid.txt; }; then
-  (cd $V && python3 check.py $pid --tier $tier > $out/check_$pid.txt 2>$out/check_$pid.err; echo "exit=$? (tier $tier, full check; native sweep flagged nothing the restricted runs could decide)" >> $out/check_$pid.txt)
-fi
-hif [ -n "$hits" ]; then
-  (cd $V && VERIF_ONLY="$hits" python3 check.py $pid --tier $tier > $out/check_$pid.txt 2>$out/check_$pid.err; echo "exit=$? (tier $tier, restricted to the harnesses the native sweep flagged: $hits)" >> $out/check_$pid.txt)
-  if ! grep -q "^VIOLATION" $out/check_$pid.txt && [ "$tier" = quick ]; then
-    # the flagged harnesses may belong to the thorough tier only (larger bounds, slow ones)
-    (cd $V && VERIF_ONLY="$hits" python3 check.py $pid --tier thorough > $out/check_${pid}_thorough.txt 2>$out/check_${pid}_thorough.err; echo "exit=$? (tier thorough, restricted to the harnesses the native sweep flagged: $hits)" >> $out/check_${pid}_thorough.txt)
-    if grep -q "^VIOLATION" $out/check_${pid}_thorough.txt; then cp $out/check_${pid}_thorough.txt $out/check_$pid.txt; fi
-  fi
-fi
-if [ -z "$hits" ] || { ! grep -q "^VIOLATION" $out/check_$pid.txt && grep -q "no obligation was generated" $out/check_$pid.txt; }; then
-  (cd $V && python3 check.py $pid --tier $tier > $out/check_$pid.txt 2>$out/check_$pid.err; echo "exit=$? (tier $tier, full check; native sweep flagged nothing the restricted runs could decide)" >> $out/check_$pid.txt)
-fi
-eif [ -n "$hits" ]; then
-  (cd $V && VERIF_ONLY="$hits" python3 check.py $pid --tier $tier > $out/check_$pid.txt 2>$out/check_$pid.err; echo "exit=$? (tier $tier, restricted to the harnesses the native sweep flagged: $hits)" >> $out/check_$pid.txt)
-  if ! grep -q "^VIOLATION" $out/check_$pid.txt && [ "$tier" = quick ]; then
-    # the flagged harnesses may belong to the thorough tier only (larger bounds, slow ones)
-    (cd $V && VERIF_ONLY="$hits" python3 check.py $pid --tier thorough > $out/check_${pid}_thorough.txt 2>$out/check_${pid}_thorough.err; echo "exit=$? (tier thorough, restricted to the harnesses the native sweep flagged: $hits)" >> $out/check_${pid}_thorough.txt)
-    if grep -q "^VIOLATION" $out/check_${pid}_thorough.txt; then cp $out/check_${pid}_thorough.txt $out/check_$pid.txt; fi
-  fi
-fi
-if [ -z "$hits" ] || { ! grep -q "^VIOLATION" $out/check_$pid.txt && grep -q "no obligation was generated" $out/check_$pid.txt; }; then
-  (cd $V && python3 check.py $pid --tier $tier > $out/check_$pid.txt 2>$out/check_$pid.err; echo "exit=$? (tier $tier, full check; native sweep flagged nothing the restricted runs could decide)" >> $out/check_$pid.txt)
-fi
- if [ -n "$hits" ]; then
-  (cd $V && VERIF_ONLY="$hits" python3 check.py $pid --tier $tier > $out/check_$pid.txt 2>$out/check_$pid.err; echo "exit=$? (tier $tier, restricted to the harnesses the native sweep flagged: $hits)" >> $out/check_$pid.txt)
-  if ! grep -q "^VIOLATION" $out/check_$pid.txt && [ "$tier" = quick ]; then
-    # the flagged harnesses may belong to the thorough tier only (larger bounds, slow ones)
-    (cd $V && VERIF_ONLY="$hits" python3 check.py $pid --tier thorough > $out/check_${pid}_thorough.txt 2>$out/check_${pid}_thorough.err; echo "exit=$? (tier thorough, restricted to the harnesses the native sweep flagged: $hits)" >> $out/check_${pid}_thorough.txt)
-    if grep -q "^VIOLATION" $out/check_${pid}_thorough.txt; then cp $out/check_${pid}_thorough.txt $out/check_$pid.txt; fi
-  fi
-fi
-if [ -z "$hits" ] || { ! grep -q "^VIOLATION" $out/check_$pid.txt && grep -q "no obligation was generated" $out/check_$pid.txt; }; then
-  (cd $V && python3 check.py $pid --tier $tier > $out/check_$pid.txt 2>$out/check_$pid.err; echo "exit=$? (tier $tier, full check; native sweep flagged nothing the restricted runs could decide)" >> $out/check_$pid.txt)
-fi
-rif [ -n "$hits" ]; then
-  (cd $V && VERIF_ONLY="$hits" python3 check.py $pid --tier $tier > $out/check_$pid.txt 2>$out/check_$pid.err; echo "exit=$? (tier $tier, restricted to the harnesses the native sweep flagged: $hits)" >> $out/check_$pid.txt)
-  if ! grep -q "^VIOLATION" $out/check_$pid.txt && [ "$tier" = quick ]; then
-    # the flagged harnesses may belong to the thorough tier only (larger bounds, slow ones)
-    (cd $V && VERIF_ONLY="$hits" python3 check.py $pid --tier thorough > $out/check_${pid}_thorough.txt 2>$out/check_${pid}_thorough.err; echo "exit=$? (tier thorough, restricted to the harnesses the native sweep flagged: $hits)" >> $out/check_${pid}_thorough.txt)
-    if grep -q "^VIOLATION" $out/check_${pid}_thorough.txt; then cp $out/check_${pid}_thorough.txt $out/check_$pid.txt; fi
-  fi
-fi
-if [ -z "$hits" ] || { ! grep -q "^VIOLATION" $out/check_$pid.txt && grep -q "no obligation was generated" $out/check_$pid.txt; }; then
-  (cd $V && python3 check.py $pid --tier $tier > $out/check_$pid.txt 2>$out/check_$pid.err; echo "exit=$? (tier $tier, full check; native sweep flagged nothing the restricted runs could decide)" >> $out/check_$pid.txt)
-fi
-eif [ -n "$hits" ]; then
-  (cd $V && VERIF_ONLY="$hits" python3 check.py $pid --tier $tier > $out/check_$pid.txt 2>$out/check_$pid.err; echo "exit=$? (tier $tier, restricted to the harnesses the native sweep flagged: $hits)" >> $out/check_$pid.txt)
-  if ! grep -q "^VIOLATION" $out/check_$pid.txt && [ "$tier" = quick ]; then
-    # the flagged harnesses may belong to the thorough tier only (larger bounds, slow ones)
-    (cd $V && VERIF_ONLY="$hits" python3 check.py $pid --tier thorough > $out/check_${pid}_thorough.txt 2>$out/check_${pid}_thorough.err; echo "exit=$? (tier thorough, restricted to the harnesses the native sweep flagged: $hits)" >> $out/check_${pid}_thorough.txt)
-    if grep -q "^VIOLATION" $out/check_${pid}_thorough.txt; then cp $out/check_${pid}_thorough.txt $out/check_$pid.txt; fi
-  fi
-fi
-if [ -z "$hits" ] || { ! grep -q "^VIOLATION" $out/check_$pid.txt && grep -q "no obligation was generated" $out/check_$pid.txt; }; then
-  (cd $V && python3 check.py $pid --tier $tier > $out/check_$pid.txt 2>$out/check_$pid.err; echo "exit=$? (tier $tier, full check; native sweep flagged nothing the restricted runs could decide)" >> $out/check_$pid.txt)
-fi
-cif [ -n "$hits" ]; then
-  (cd $V && VERIF_ONLY="$hits" python3 check.py $pid --tier $tier > $out/check_$pid.txt 2>$out/check_$pid.err; echo "exit=$? (tier $tier, restricted to the harnesses the native sweep flagged: $hits)" >> $out/check_$pid.txt)
-  if ! grep -q "^VIOLATION" $out/check_$pid.txt && [ "$tier" = quick ]; then
-    # the flagged harnesses may belong to the thorough tier only (larger bounds, slow ones)
-    (cd $V && VERIF_ONLY="$hits" python3 check.py $pid --tier thorough > $out/check_${pid}_thorough.txt 2>$out/check_${pid}_thorough.err; echo "exit=$? (tier thorough, restricted to the harnesses the native sweep flagged: $hits)" >> $out/check_${pid}_thorough.txt)
-    if grep -q "^VIOLATION" $out/check_${pid}_thorough.txt; then cp $out/check_${pid}_thorough.txt $out/check_$pid.txt; fi
-  fi
-fi
-if [ -z "$hits" ] || { ! grep -q "^VIOLATION" $out/check_$pid.txt && grep -q "no obligation was generated" $out/check_$pid.txt; }; then
-  (cd $V && python3 check.py $pid --tier $tier > $out/check_$pid.txt 2>$out/check_$pid.err; echo "exit=$? (tier $tier, full check; native sweep flagged nothing the restricted runs could decide)" >> $out/check_$pid.txt)
-fi
-oif [ -n "$hits" ]; then
-  (cd $V && VERIF_ONLY="$hits" python3 check.py $pid --tier $tier > $out/check_$pid.txt 2>$out/check_$pid.err; echo "exit=$? (tier $tier, restricted to the harnesses the native sweep flagged: $hits)" >> $out/check_$pid.txt)
-  if ! grep -q "^VIOLATION" $out/check_$pid.txt && [ "$tier" = quick ]; then
-    # the flagged harnesses may belong to the thorough tier only (larger bounds, slow ones)
-    (cd $V && VERIF_ONLY="$hits" python3 check.py $pid --tier thorough > $out/check_${pid}_thorough.txt 2>$out/check_${pid}_thorough.err; echo "exit=$? (tier thorough, restricted to the harnesses the native sweep flagged: $hits)" >> $out/check_${pid}_thorough.txt)
-    if grep -q "^VIOLATION" $out/check_${pid}_thorough.txt; then cp $out/check_${pid}_thorough.txt $out/check_$pid.txt; fi
-  fi
-fi
-if [ -z "$hits" ] || { ! grep -q "^VIOLATION" $out/check_$pid.txt && grep -q "no obligation was generated" $out/check_$pid.txt; }; then
-  (cd $V && python3 check.py $pid --tier $tier > $out/check_$pid.txt 2>$out/check_$pid.err; echo "exit=$? (tier $tier, full check; native sweep flagged nothing the restricted runs could decide)" >> $out/check_$pid.txt)
-fi
-rif [ -n "$hits" ]; then
-  (cd $V && VERIF_ONLY="$hits" python3 check.py $pid --tier $tier > $out/check_$pid.txt 2>$out/check_$pid.err; echo "exit=$? (tier $tier, restricted to the harnesses the native sweep flagged: $hits)" >> $out/check_$pid.txt)
-  if ! grep -q "^VIOLATION" $out/check_$pid.txt && [ "$tier" = quick ]; then
-    # the flagged harnesses may belong to the thorough tier only (larger bounds, slow ones)
-    (cd $V && VERIF_ONLY="$hits" python3 check.py $pid --tier thorough > $out/check_${pid}_thorough.txt 2>$out/check_${pid}_thorough.err; echo "exit=$? (tier thorough, restricted to the harnesses the native sweep flagged: $hits)" >> $out/check_${pid}_thorough.txt)
-    if grep -q "^VIOLATION" $out/check_${pid}_thorough.txt; then cp $out/check_${pid}_thorough.txt $out/check_$pid.txt; fi
-  fi
-fi
-if [ -z "$hits" ] || { ! grep -q "^VIOLATION" $out/check_$pid.txt && grep -q "no obligation was generated" $out/check_$pid.txt; }; then
-  (cd $V && python3 check.py $pid --tier $tier > $out/check_$pid.txt 2>$out/check_$pid.err; echo "exit=$? (tier $tier, full check; native sweep flagged nothing the restricted runs could decide)" >> $out/check_$pid.txt)
-fi
-dif [ -n "$hits" ]; then
-  (cd $V && VERIF_ONLY="$hits" python3 check.py $pid --tier $tier > $out/check_$pid.txt 2>$out/check_$pid.err; echo "exit=$? (tier $tier, restricted to the harnesses the native sweep flagged: $hits)" >> $out/check_$pid.txt)
-  if ! grep -q "^VIOLATION" $out/check_$pid.txt && [ "$tier" = quick ]; then
-    # the flagged harnesses may belong to the thorough tier only (larger bounds, slow ones)
-    (cd $V && VERIF_ONLY="$hits" python3 check.py $pid --tier thorough > $out/check_${pid}_thorough.txt 2>$out/check_${pid}_thorough.err; echo "exit=$? (tier thorough, restricted to the harnesses the native sweep flagged: $hits)" >> $out/check_${pid}_thorough.txt)
-    if grep -q "^VIOLATION" $out/check_${pid}_thorough.txt; then cp $out/check_${pid}_thorough.txt $out/check_$pid.txt; fi
-  fi
-fi
-if [ -z "$hits" ] || { ! grep -q "^VIOLATION" $out/check_$pid.txt && grep -q "no obligation was generated" $out/check_$pid.txt; }; then
-  (cd $V && python3 check.py $pid --tier $tier > $out/check_$pid.txt 2>$out/check_$pid.err; echo "exit=$? (tier $tier, full check; native sweep flagged nothing the restricted runs could decide)" >> $out/check_$pid.txt)
-fi
-eif [ -n "$hits" ]; then
-  (cd $V && VERIF_ONLY="$hits" python3 check.py $pid --tier $tier > $out/check_$pid.txt 2>$out/check_$pid.err; echo "exit=$? (tier $tier, restricted to the harnesses the native sweep flagged: $hits)" >> $out/check_$pid.txt)
-  if ! grep -q "^VIOLATION" $out/check_$pid.txt && [ "$tier" = quick ]; then
-    # the flagged harnesses may belong to the thorough tier only (larger bounds, slow ones)
-    (cd $V && VERIF_ONLY="$hits" python3 check.py $pid --tier thorough > $out/check_${pid}_thorough.txt 2>$out/check_${pid}_thorough.err; echo "exit=$? (tier thorough, restricted to the harnesses the native sweep flagged: $hits)" >> $out/check_${pid}_thorough.txt)
-    if grep -q "^VIOLATION" $out/check_${pid}_thorough.txt; then cp $out/check_${pid}_thorough.txt $out/check_$pid.txt; fi
-  fi
-fi
-if [ -z "$hits" ] || { ! grep -q "^VIOLATION" $out/check_$pid.txt && grep -q "no obligation was generated" $out/check_$pid.txt; }; then
-  (cd $V && python3 check.py $pid --tier $tier > $out/check_$pid.txt 2>$out/check_$pid.err; echo "exit=$? (tier $tier, full check; native sweep flagged nothing the restricted runs could decide)" >> $out/check_$pid.txt)
-fi
-dif [ -n "$hits" ]; then
-  (cd $V && VERIF_ONLY="$hits" python3 check.py $pid --tier $tier > $out/check_$pid.txt 2>$out/check_$pid.err; echo "exit=$? (tier $tier, restricted to the harnesses the native sweep flagged: $hits)" >> $out/check_$pid.txt)
-  if ! grep -q "^VIOLATION" $out/check_$pid.txt && [ "$tier" = quick ]; then
-    # the flagged harnesses may belong to the thorough tier only (larger bounds, slow ones)
-    (cd $V && VERIF_ONLY="$hits" python3 check.py $pid --tier thorough > $out/check_${pid}_thorough.txt 2>$out/check_${pid}_thorough.err; echo "exit=$? (tier thorough, restricted to the harnesses the native sweep flagged: $hits)" >> $out/check_${pid}_thorough.txt)
-    if grep -q "^VIOLATION" $out/check_${pid}_thorough.txt; then cp $out/check_${pid}_thorough.txt $out/check_$pid.txt; fi
-  fi
-fi
-if [ -z "$hits" ] || { ! grep -q "^VIOLATION" $out/check_$pid.txt && grep -q "no obligation was generated" $out/check_$pid.txt; }; then
-  (cd $V && python3 check.py $pid --tier $tier > $out/check_$pid.txt 2>$out/check_$pid.err; echo "exit=$? (tier $tier, full check; native sweep flagged nothing the restricted runs could decide)" >> $out/check_$pid.txt)
-fi
- if [ -n "$hits" ]; then
-  (cd $V && VERIF_ONLY="$hits" python3 check.py $pid --tier $tier > $out/check_$pid.txt 2>$out/check_$pid.err; echo "exit=$? (tier $tier, restricted to the harnesses the native sweep flagged: $hits)" >> $out/check_$pid.txt)
-  if ! grep -q "^VIOLATION" $out/check_$pid.txt && [ "$tier" = quick ]; then
-    # the flagged harnesses may belong to the thorough tier only (larger bounds, slow ones)
-    (cd $V && VERIF_ONLY="$hits" python3 check.py $pid --tier thorough > $out/check_${pid}_thorough.txt 2>$out/check_${pid}_thorough.err; echo "exit=$? (tier thorough, restricted to the harnesses the native sweep flagged: $hits)" >> $out/check_${pid}_thorough.txt)
-    if grep -q "^VIOLATION" $out/check_${pid}_thorough.txt; then cp $out/check_${pid}_thorough.txt $out/check_$pid.txt; fi
-  fi
-fi
-if [ -z "$hits" ] || { ! grep -q "^VIOLATION" $out/check_$pid.txt && grep -q "no obligation was generated" $out/check_$pid.txt; }; then
-  (cd $V && python3 check.py $pid --tier $tier > $out/check_$pid.txt 2>$out/check_$pid.err; echo "exit=$? (tier $tier, full check; native sweep flagged nothing the restricted runs could decide)" >> $out/check_$pid.txt)
-fi
-fif [ -n "$hits" ]; then
-  (cd $V && VERIF_ONLY="$hits" python3 check.py $pid --tier $tier > $out/check_$pid.txt 2>$out/check_$pid.err; echo "exit=$? (tier $tier, restricted to the harnesses the native sweep flagged: $hits)" >> $out/check_$pid.txt)
-  if ! grep -q "^VIOLATION" $out/check_$pid.txt && [ "$tier" = quick ]; then
-    # the flagged harnesses may belong to the thorough tier only (larger bounds, slow ones)
-    (cd $V && VERIF_ONLY="$hits" python3 check.py $pid --tier thorough > $out/check_${pid}_thorough.txt 2>$out/check_${pid}_thorough.err; echo "exit=$? (tier thorough, restricted to the harnesses the native sweep flagged: $hits)" >> $out/check_${pid}_thorough.txt)
-    if grep -q "^VIOLATION" $out/check_${pid}_thorough.txt; then cp $out/check_${pid}_thorough.txt $out/check_$pid.txt; fi
-  fi
-fi
-if [ -z "$hits" ] || { ! grep -q "^VIOLATION" $out/check_$pid.txt && grep -q "no obligation was generated" $out/check_$pid.txt; }; then
-  (cd $V && python3 check.py $pid --tier $tier > $out/check_$pid.txt 2>$out/check_$pid.err; echo "exit=$? (tier $tier, full check; native sweep flagged nothing the restricted runs could decide)" >> $out/check_$pid.txt)
-fi
-iif [ -n "$hits" ]; then
-  (cd $V && VERIF_ONLY="$hits" python3 check.py $pid --tier $tier > $out/check_$pid.txt 2>$out/check_$pid.err; echo "exit=$? (tier $tier, restricted to the harnesses the native sweep flagged: $hits)" >> $out/check_$pid.txt)
-  if ! grep -q "^VIOLATION" $out/check_$pid.txt && [ "$tier" = quick ]; then
-    # the flagged harnesses may belong to the thorough tier only (larger bounds, slow ones)
-    (cd $V && VERIF_ONLY="$hits" python3 check.py $pid --tier thorough > $out/check_${pid}_thorough.txt 2>$out/check_${pid}_thorough.err; echo "exit=$? (tier thorough, restricted to the harnesses the native sweep flagged: $hits)" >> $out/check_${pid}_thorough.txt)
-    if grep -q "^VIOLATION" $out/check_${pid}_thorough.txt; then cp $out/check_${pid}_thorough.txt $out/check_$pid.txt; fi
-  fi
-fi
-if [ -z "$hits" ] || { ! grep -q "^VIOLATION" $out/check_$pid.txt && grep -q "no obligation was generated" $out/check_$pid.txt; }; then
-  (cd $V && python3 check.py $pid --tier $tier > $out/check_$pid.txt 2>$out/check_$pid.err; echo "exit=$? (tier $tier, full check; native sweep flagged nothing the restricted runs could decide)" >> $out/check_$pid.txt)
-fi
-nif [ -n "$hits" ]; then
-  (cd $V && VERIF_ONLY="$hits" python3 check.py $pid --tier $tier > $out/check_$pid.txt 2>$out/check_$pid.err; echo "exit=$? (tier $tier, restricted to the harnesses the native sweep flagged: $hits)" >> $out/check_$pid.txt)
-  if ! grep -q "^VIOLATION" $out/check_$pid.txt && [ "$tier" = quick ]; then
-    # the flagged harnesses may belong to the thorough tier only (larger bounds, slow ones)
-    (cd $V && VERIF_ONLY="$hits" python3 check.py $pid --tier thorough > $out/check_${pid}_thorough.txt 2>$out/check_${pid}_thorough.err; echo "exit=$? (tier thorough, restricted to the harnesses the native sweep flagged: $hits)" >> $out/check_${pid}_thorough.txt)
-    if grep -q "^VIOLATION" $out/check_${pid}_thorough.txt; then cp $out/check_${pid}_thorough.txt $out/check_$pid.txt; fi
-  fi
-fi
-if [ -z "$hits" ] || { ! grep -q "^VIOLATION" $out/check_$pid.txt && grep -q "no obligation was generated" $out/check_$pid.txt; }; then
-  (cd $V && python3 check.py $pid --tier $tier > $out/check_$pid.txt 2>$out/check_$pid.err; echo "exit=$? (tier $tier, full check; native sweep flagged nothing the restricted runs could decide)" >> $out/check_$pid.txt)
-fi
-dif [ -n "$hits" ]; then
-  (cd $V && VERIF_ONLY="$hits" python3 check.py $pid --tier $tier > $out/check_$pid.txt 2>$out/check_$pid.err; echo "exit=$? (tier $tier, restricted to the harnesses the native sweep flagged: $hits)" >> $out/check_$pid.txt)
-  if ! grep -q "^VIOLATION" $out/check_$pid.txt && [ "$tier" = quick ]; then
-    # the flagged harnesses may belong to the thorough tier only (larger bounds, slow ones)
-    (cd $V && VERIF_ONLY="$hits" python3 check.py $pid --tier thorough > $out/check_${pid}_thorough.txt 2>$out/check_${pid}_thorough.err; echo "exit=$? (tier thorough, restricted to the harnesses the native sweep flagged: $hits)" >> $out/check_${pid}_thorough.txt)
-    if grep -q "^VIOLATION" $out/check_${pid}_thorough.txt; then cp $out/check_${pid}_thorough.txt $out/check_$pid.txt; fi
-  fi
-fi
-if [ -z "$hits" ] || { ! grep -q "^VIOLATION" $out/check_$pid.txt && grep -q "no obligation was generated" $out/check_$pid.txt; }; then
-  (cd $V && python3 check.py $pid --tier $tier > $out/check_$pid.txt 2>$out/check_$pid.err; echo "exit=$? (tier $tier, full check; native sweep flagged nothing the restricted runs could decide)" >> $out/check_$pid.txt)
-fi
-iif [ -n "$hits" ]; then
-  (cd $V && VERIF_ONLY="$hits" python3 check.py $pid --tier $tier > $out/check_$pid.txt 2>$out/check_$pid.err; echo "exit=$? (tier $tier, restricted to the harnesses the native sweep flagged: $hits)" >> $out/check_$pid.txt)
-  if ! grep -q "^VIOLATION" $out/check_$pid.txt && [ "$tier" = quick ]; then
-    # the flagged harnesses may belong to the thorough tier only (larger bounds, slow ones)
-    (cd $V && VERIF_ONLY="$hits" python3 check.py $pid --tier thorough > $out/check_${pid}_thorough.txt 2>$out/check_${pid}_thorough.err; echo "exit=$? (tier thorough, restricted to the harnesses the native sweep flagged: $hits)" >> $out/check_${pid}_thorough.txt)
-    if grep -q "^VIOLATION" $out/check_${pid}_thorough.txt; then cp $out/check_${pid}_thorough.txt $out/check_$pid.txt; fi
-  fi
-fi
-if [ -z "$hits" ] || { ! grep -q "^VIOLATION" $out/check_$pid.txt && grep -q "no obligation was generated" $out/check_$pid.txt; }; then
-  (cd $V && python3 check.py $pid --tier $tier > $out/check_$pid.txt 2>$out/check_$pid.err; echo "exit=$? (tier $tier, full check; native sweep flagged nothing the restricted runs could decide)" >> $out/check_$pid.txt)
-fi
-nif [ -n "$hits" ]; then
-  (cd $V && VERIF_ONLY="$hits" python3 check.py $pid --tier $tier > $out/check_$pid.txt 2>$out/check_$pid.err; echo "exit=$? (tier $tier, restricted to the harnesses the native sweep flagged: $hits)" >> $out/check_$pid.txt)
-  if ! grep -q "^VIOLATION" $out/check_$pid.txt && [ "$tier" = quick ]; then
-    # the flagged harnesses may belong to the thorough tier only (larger bounds, slow ones)
-    (cd $V && VERIF_ONLY="$hits" python3 check.py $pid --tier thorough > $out/check_${pid}_thorough.txt 2>$out/check_${pid}_thorough.err; echo "exit=$? (tier thorough, restricted to the harnesses the native sweep flagged: $hits)" >> $out/check_${pid}_thorough.txt)
-    if grep -q "^VIOLATION" $out/check_${pid}_thorough.txt; then cp $out/check_${pid}_thorough.txt $out/check_$pid.txt; fi
-  fi
-fi
-if [ -z "$hits" ] || { ! grep -q "^VIOLATION" $out/check_$pid.txt && grep -q "no obligation was generated" $out/check_$pid.txt; }; then
-  (cd $V && python3 check.py $pid --tier $tier > $out/check_$pid.txt 2>$out/check_$pid.err; echo "exit=$? (tier $tier, full check; native sweep flagged nothing the restricted runs could decide)" >> $out/check_$pid.txt)
-fi
-gif [ -n "$hits" ]; then
-  (cd $V && VERIF_ONLY="$hits" python3 check.py $pid --tier $tier > $out/check_$pid.txt 2>$out/check_$pid.err; echo "exit=$? (tier $tier, restricted to the harnesses the native sweep flagged: $hits)" >> $out/check_$pid.txt)
-  if ! grep -q "^VIOLATION" $out/check_$pid.txt && [ "$tier" = quick ]; then
-    # the flagged harnesses may belong to the thorough tier only (larger bounds, slow ones)
-    (cd $V && VERIF_ONLY="$hits" python3 check.py $pid --tier thorough > $out/check_${pid}_thorough.txt 2>$out/check_${pid}_thorough.err; echo "exit=$? (tier thorough, restricted to the harnesses the native sweep flagged: $hits)" >> $out/check_${pid}_thorough.txt)
-    if grep -q "^VIOLATION" $out/check_${pid}_thorough.txt; then cp $out/check_${pid}_thorough.txt $out/check_$pid.txt; fi
-  fi
-fi
-if [ -z "$hits" ] || { ! grep -q "^VIOLATION" $out/check_$pid.txt && grep -q "no obligation was generated" $out/check_$pid.txt; }; then
-  (cd $V && python3 check.py $pid --tier $tier > $out/check_$pid.txt 2>$out/check_$pid.err; echo "exit=$? (tier $tier, full check; native sweep flagged nothing the restricted runs could decide)" >> $out/check_$pid.txt)
-fi
-sif [ -n "$hits" ]; then
-  (cd $V && VERIF_ONLY="$hits" python3 check.py $pid --tier $tier > $out/check_$pid.txt 2>$out/check_$pid.err; echo "exit=$? (tier $tier, restricted to the harnesses the native sweep flagged: $hits)" >> $out/check_$pid.txt)
-  if ! grep -q "^VIOLATION" $out/check_$pid.txt && [ "$tier" = quick ]; then
-    # the flagged harnesses may belong to the thorough tier only (larger bounds, slow ones)
-    (cd $V && VERIF_ONLY="$hits" python3 check.py $pid --tier thorough > $out/check_${pid}_thorough.txt 2>$out/check_${pid}_thorough.err; echo "exit=$? (tier thorough, restricted to the harnesses the native sweep flagged: $hits)" >> $out/check_${pid}_thorough.txt)
-    if grep -q "^VIOLATION" $out/check_${pid}_thorough.txt; then cp $out/check_${pid}_thorough.txt $out/check_$pid.txt; fi
-  fi
-fi
-if [ -z "$hits" ] || { ! grep -q "^VIOLATION" $out/check_$pid.txt && grep -q "no obligation was generated" $out/check_$pid.txt; }; then
-  (cd $V && python3 check.py $pid --tier $tier > $out/check_$pid.txt 2>$out/check_$pid.err; echo "exit=$? (tier $tier, full check; native sweep flagged nothing the restricted runs could decide)" >> $out/check_$pid.txt)
-fi
-)if [ -n "$hits" ]; then
-  (cd $V && VERIF_ONLY="$hits" python3 check.py $pid --tier $tier > $out/check_$pid.txt 2>$out/check_$pid.err; echo "exit=$? (tier $tier, restricted to the harnesses the native sweep flagged: $hits)" >> $out/check_$pid.txt)
-  if ! grep -q "^VIOLATION" $out/check_$pid.txt && [ "$tier" = quick ]; then
-    # the flagged harnesses may belong to the thorough tier only (larger bounds, slow ones)
-    (cd $V && VERIF_ONLY="$hits" python3 check.py $pid --tier thorough > $out/check_${pid}_thorough.txt 2>$out/check_${pid}_thorough.err; echo "exit=$? (tier thorough, restricted to the harnesses the native sweep flagged: $hits)" >> $out/check_${pid}_thorough.txt)
-    if grep -q "^VIOLATION" $out/check_${pid}_thorough.txt; then cp $out/check_${pid}_thorough.txt $out/check_$pid.txt; fi
-  fi
-fi
-if [ -z "$hits" ] || { ! grep -q "^VIOLATION" $out/check_$pid.txt && grep -q "no obligation was generated" $out/check_$pid.txt; }; then
-  (cd $V && python3 check.py $pid --tier $tier > $out/check_$pid.txt 2>$out/check_$pid.err; echo "exit=$? (tier $tier, full check; native sweep flagged nothing the restricted runs could decide)" >> $out/check_$pid.txt)
-fi
- if [ -n "$hits" ]; then
-  (cd $V && VERIF_ONLY="$hits" python3 check.py $pid --tier $tier > $out/check_$pid.txt 2>$out/check_$pid.err; echo "exit=$? (tier $tier, restricted to the harnesses the native sweep flagged: $hits)" >> $out/check_$pid.txt)
-  if ! grep -q "^VIOLATION" $out/check_$pid.txt && [ "$tier" = quick ]; then
-    # the flagged harnesses may belong to the thorough tier only (larger bounds, slow ones)
-    (cd $V && VERIF_ONLY="$hits" python3 check.py $pid --tier thorough > $out/check_${pid}_thorough.txt 2>$out/check_${pid}_thorough.err; echo "exit=$? (tier thorough, restricted to the harnesses the native sweep flagged: $hits)" >> $out/check_${pid}_thorough.txt)
-    if grep -q "^VIOLATION" $out/check_${pid}_thorough.txt; then cp $out/check_${pid}_thorough.txt $out/check_$pid.txt; fi
-  fi
-fi
-if [ -z "$hits" ] || { ! grep -q "^VIOLATION" $out/check_$pid.txt && grep -q "no obligation was generated" $out/check_$pid.txt; }; then
-  (cd $V && python3 check.py $pid --tier $tier > $out/check_$pid.txt 2>$out/check_$pid.err; echo "exit=$? (tier $tier, full check; native sweep flagged nothing the restricted runs could decide)" >> $out/check_$pid.txt)
-fi
-aif [ -n "$hits" ]; then
-  (cd $V && VERIF_ONLY="$hits" python3 check.py $pid --tier $tier > $out/check_$pid.txt 2>$out/check_$pid.err; echo "exit=$? (tier $tier, restricted to the harnesses the native sweep flagged: $hits)" >> $out/check_$pid.txt)
-  if ! grep -q "^VIOLATION" $out/check_$pid.txt && [ "$tier" = quick ]; then
-    # the flagged harnesses may belong to the thorough tier only (larger bounds, slow ones)
-    (cd $V && VERIF_ONLY="$hits" python3 check.py $pid --tier thorough > $out/check_${pid}_thorough.txt 2>$out/check_${pid}_thorough.err; echo "exit=$? (tier thorough, restricted to the harnesses the native sweep flagged: $hits)" >> $out/check_${pid}_thorough.txt)
-    if grep -q "^VIOLATION" $out/check_${pid}_thorough.txt; then cp $out/check_${pid}_thorough.txt $out/check_$pid.txt; fi
-  fi
-fi
-if [ -z "$hits" ] || { ! grep -q "^VIOLATION" $out/check_$pid.txt && grep -q "no obligation was generated" $out/check_$pid.txt; }; then
-  (cd $V && python3 check.py $pid --tier $tier > $out/check_$pid.txt 2>$out/check_$pid.err; echo "exit=$? (tier $tier, full check; native sweep flagged nothing the restricted runs could decide)" >> $out/check_$pid.txt)
-fi
-rif [ -n "$hits" ]; then
-  (cd $V && VERIF_ONLY="$hits" python3 check.py $pid --tier $tier > $out/check_$pid.txt 2>$out/check_$pid.err; echo "exit=$? (tier $tier, restricted to the harnesses the native sweep flagged: $hits)" >> $out/check_$pid.txt)
-  if ! grep -q "^VIOLATION" $out/check_$pid.txt && [ "$tier" = quick ]; then
-    # the flagged harnesses may belong to the thorough tier only (larger bounds, slow ones)
-    (cd $V && VERIF_ONLY="$hits" python3 check.py $pid --tier thorough > $out/check_${pid}_thorough.txt 2>$out/check_${pid}_thorough.err; echo "exit=$? (tier thorough, restricted to the harnesses the native sweep flagged: $hits)" >> $out/check_${pid}_thorough.txt)
-    if grep -q "^VIOLATION" $out/check_${pid}_thorough.txt; then cp $out/check_${pid}_thorough.txt $out/check_$pid.txt; fi
-  fi
-fi
-if [ -z "$hits" ] || { ! grep -q "^VIOLATION" $out/check_$pid.txt && grep -q "no obligation was generated" $out/check_$pid.txt; }; then
-  (cd $V && python3 check.py $pid --tier $tier > $out/check_$pid.txt 2>$out/check_$pid.err; echo "exit=$? (tier $tier, full check; native sweep flagged nothing the restricted runs could decide)" >> $out/check_$pid.txt)
-fi
-eif [ -n "$hits" ]; then
-  (cd $V && VERIF_ONLY="$hits" python3 check.py $pid --tier $tier > $out/check_$pid.txt 2>$out/check_$pid.err; echo "exit=$? (tier $tier, restricted to the harnesses the native sweep flagged: $hits)" >> $out/check_$pid.txt)
-  if ! grep -q "^VIOLATION" $out/check_$pid.txt && [ "$tier" = quick ]; then
-    # the flagged harnesses may belong to the thorough tier only (larger bounds, slow ones)
-    (cd $V && VERIF_ONLY="$hits" python3 check.py $pid --tier thorough > $out/check_${pid}_thorough.txt 2>$out/check_${pid}_thorough.err; echo "exit=$? (tier thorough, restricted to the harnesses the native sweep flagged: $hits)" >> $out/check_${pid}_thorough.txt)
-    if grep -q "^VIOLATION" $out/check_${pid}_thorough.txt; then cp $out/check_${pid}_thorough.txt $out/check_$pid.txt; fi
-  fi
-fi
-if [ -z "$hits" ] || { ! grep -q "^VIOLATION" $out/check_$pid.txt && grep -q "no obligation was generated" $out/check_$pid.txt; }; then
-  (cd $V && python3 check.py $pid --tier $tier > $out/check_$pid.txt 2>$out/check_$pid.err; echo "exit=$? (tier $tier, full check; native sweep flagged nothing the restricted runs could decide)" >> $out/check_$pid.txt)
-fi
- if [ -n "$hits" ]; then
-  (cd $V && VERIF_ONLY="$hits" python3 check.py $pid --tier $tier > $out/check_$pid.txt 2>$out/check_$pid.err; echo "exit=$? (tier $tier, restricted to the harnesses the native sweep flagged: $hits)" >> $out/check_$pid.txt)
-  if ! grep -q "^VIOLATION" $out/check_$pid.txt && [ "$tier" = quick ]; then
-    # the flagged harnesses may belong to the thorough tier only (larger bounds, slow ones)
-    (cd $V && VERIF_ONLY="$hits" python3 check.py $pid --tier thorough > $out/check_${pid}_thorough.txt 2>$out/check_${pid}_thorough.err; echo "exit=$? (tier thorough, restricted to the harnesses the native sweep flagged: $hits)" >> $out/check_${pid}_thorough.txt)
-    if grep -q "^VIOLATION" $out/check_${pid}_thorough.txt; then cp $out/check_${pid}_thorough.txt $out/check_$pid.txt; fi
-  fi
-fi
-if [ -z "$hits" ] || { ! grep -q "^VIOLATION" $out/check_$pid.txt && grep -q "no obligation was generated" $out/check_$pid.txt; }; then
-  (cd $V && python3 check.py $pid --tier $tier > $out/check_$pid.txt 2>$out/check_$pid.err; echo "exit=$? (tier $tier, full check; native sweep flagged nothing the restricted runs could decide)" >> $out/check_$pid.txt)
-fi
-nif [ -n "$hits" ]; then
-  (cd $V && VERIF_ONLY="$hits" python3 check.py $pid --tier $tier > $out/check_$pid.txt 2>$out/check_$pid.err; echo "exit=$? (tier $tier, restricted to the harnesses the native sweep flagged: $hits)" >> $out/check_$pid.txt)
-  if ! grep -q "^VIOLATION" $out/check_$pid.txt && [ "$tier" = quick ]; then
-    # the flagged harnesses may belong to the thorough tier only (larger bounds, slow ones)
-    (cd $V && VERIF_ONLY="$hits" python3 check.py $pid --tier thorough > $out/check_${pid}_thorough.txt 2>$out/check_${pid}_thorough.err; echo "exit=$? (tier thorough, restricted to the harnesses the native sweep flagged: $hits)" >> $out/check_${pid}_thorough.txt)
-    if grep -q "^VIOLATION" $out/check_${pid}_thorough.txt; then cp $out/check_${pid}_thorough.txt $out/check_$pid.txt; fi
-  fi
-fi
-if [ -z "$hits" ] || { ! grep -q "^VIOLATION" $out/check_$pid.txt && grep -q "no obligation was generated" $out/check_$pid.txt; }; then
-  (cd $V && python3 check.py $pid --tier $tier > $out/check_$pid.txt 2>$out/check_$pid.err; echo "exit=$? (tier $tier, full check; native sweep flagged nothing the restricted runs could decide)" >> $out/check_$pid.txt)
-fi
-oif [ -n "$hits" ]; then
-  (cd $V && VERIF_ONLY="$hits" python3 check.py $pid --tier $tier > $out/check_$pid.txt 2>$out/check_$pid.err; echo "exit=$? (tier $tier, restricted to the harnesses the native sweep flagged: $hits)" >> $out/check_$pid.txt)
-  if ! grep -q "^VIOLATION" $out/check_$pid.txt && [ "$tier" = quick ]; then
-    # the flagged harnesses may belong to the thorough tier only (larger bounds, slow ones)
-    (cd $V && VERIF_ONLY="$hits" python3 check.py $pid --tier thorough > $out/check_${pid}_thorough.txt 2>$out/check_${pid}_thorough.err; echo "exit=$? (tier thorough, restricted to the harnesses the native sweep flagged: $hits)" >> $out/check_${pid}_thorough.txt)
-    if grep -q "^VIOLATION" $out/check_${pid}_thorough.txt; then cp $out/check_${pid}_thorough.txt $out/check_$pid.txt; fi
-  fi
-fi
-if [ -z "$hits" ] || { ! grep -q "^VIOLATION" $out/check_$pid.txt && grep -q "no obligation was generated" $out/check_$pid.txt; }; then
-  (cd $V && python3 check.py $pid --tier $tier > $out/check_$pid.txt 2>$out/check_$pid.err; echo "exit=$? (tier $tier, full check; native sweep flagged nothing the restricted runs could decide)" >> $out/check_$pid.txt)
-fi
-tif [ -n "$hits" ]; then
-  (cd $V && VERIF_ONLY="$hits" python3 check.py $pid --tier $tier > $out/check_$pid.txt 2>$out/check_$pid.err; echo "exit=$? (tier $tier, restricted to the harnesses the native sweep flagged: $hits)" >> $out/check_$pid.txt)
-  if ! grep -q "^VIOLATION" $out/check_$pid.txt && [ "$tier" = quick ]; then
-    # the flagged harnesses may belong to the thorough tier only (larger bounds, slow ones)
-    (cd $V && VERIF_ONLY="$hits" python3 check.py $pid --tier thorough > $out/check_${pid}_thorough.txt 2>$out/check_${pid}_thorough.err; echo "exit=$? (tier thorough, restricted to the harnesses the native sweep flagged: $hits)" >> $out/check_${pid}_thorough.txt)
-    if grep -q "^VIOLATION" $out/check_${pid}_thorough.txt; then cp $out/check_${pid}_thorough.txt $out/check_$pid.txt; fi
-  fi
-fi
-if [ -z "$hits" ] || { ! grep -q "^VIOLATION" $out/check_$pid.txt && grep -q "no obligation was generated" $out/check_$pid.txt; }; then
-  (cd $V && python3 check.py $pid --tier $tier > $out/check_$pid.txt 2>$out/check_$pid.err; echo "exit=$? (tier $tier, full check; native sweep flagged nothing the restricted runs could decide)" >> $out/check_$pid.txt)
-fi
- if [ -n "$hits" ]; then
-  (cd $V && VERIF_ONLY="$hits" python3 check.py $pid --tier $tier > $out/check_$pid.txt 2>$out/check_$pid.err; echo "exit=$? (tier $tier, restricted to the harnesses the native sweep flagged: $hits)" >> $out/check_$pid.txt)
-  if ! grep -q "^VIOLATION" $out/check_$pid.txt && [ "$tier" = quick ]; then
-    # the flagged harnesses may belong to the thorough tier only (larger bounds, slow ones)
-    (cd $V && VERIF_ONLY="$hits" python3 check.py $pid --tier thorough > $out/check_${pid}_thorough.txt 2>$out/check_${pid}_thorough.err; echo "exit=$? (tier thorough, restricted to the harnesses the native sweep flagged: $hits)" >> $out/check_${pid}_thorough.txt)
-    if grep -q "^VIOLATION" $out/check_${pid}_thorough.txt; then cp $out/check_${pid}_thorough.txt $out/check_$pid.txt; fi
-  fi
-fi
-if [ -z "$hits" ] || { ! grep -q "^VIOLATION" $out/check_$pid.txt && grep -q "no obligation was generated" $out/check_$pid.txt; }; then
-  (cd $V && python3 check.py $pid --tier $tier > $out/check_$pid.txt 2>$out/check_$pid.err; echo "exit=$? (tier $tier, full check; native sweep flagged nothing the restricted runs could decide)" >> $out/check_$pid.txt)
-fi
-hif [ -n "$hits" ]; then
-  (cd $V && VERIF_ONLY="$hits" python3 check.py $pid --tier $tier > $out/check_$pid.txt 2>$out/check_$pid.err; echo "exit=$? (tier $tier, restricted to the harnesses the native sweep flagged: $hits)" >> $out/check_$pid.txt)
-  if ! grep -q "^VIOLATION" $out/check_$pid.txt && [ "$tier" = quick ]; then
-    # the flagged harnesses may belong to the thorough tier only (larger bounds, slow ones)
-    (cd $V && VERIF_ONLY="$hits" python3 check.py $pid --tier thorough > $out/check_${pid}_thorough.txt 2>$out/check_${pid}_thorough.err; echo "exit=$? (tier thorough, restricted to the harnesses the native sweep flagged: $hits)" >> $out/check_${pid}_thorough.txt)
-    if grep -q "^VIOLATION" $out/check_${pid}_thorough.txt; then cp $out/check_${pid}_thorough.txt $out/check_$pid.txt; fi
-  fi
-fi
-if [ -z "$hits" ] || { ! grep -q "^VIOLATION" $out/check_$pid.txt && grep -q "no obligation was generated" $out/check_$pid.txt; }; then
-  (cd $V && python3 check.py $pid --tier $tier > $out/check_$pid.txt 2>$out/check_$pid.err; echo "exit=$? (tier $tier, full check; native sweep flagged nothing the restricted runs could decide)" >> $out/check_$pid.txt)
-fi
-iif [ -n "$hits" ]; then
-  (cd $V && VERIF_ONLY="$hits" python3 check.py $pid --tier $tier > $out/check_$pid.txt 2>$out/check_$pid.err; echo "exit=$? (tier $tier, restricted to the harnesses the native sweep flagged: $hits)" >> $out/check_$pid.txt)
-  if ! grep -q "^VIOLATION" $out/check_$pid.txt && [ "$tier" = quick ]; then
-    # the flagged harnesses may belong to the thorough tier only (larger bounds, slow ones)
-    (cd $V && VERIF_ONLY="$hits" python3 check.py $pid --tier thorough > $out/check_${pid}_thorough.txt 2>$out/check_${pid}_thorough.err; echo "exit=$? (tier thorough, restricted to the harnesses the native sweep flagged: $hits)" >> $out/check_${pid}_thorough.txt)
-    if grep -q "^VIOLATION" $out/check_${pid}_thorough.txt; then cp $out/check_${pid}_thorough.txt $out/check_$pid.txt; fi
-  fi
-fi
-if [ -z "$hits" ] || { ! grep -q "^VIOLATION" $out/check_$pid.txt && grep -q "no obligation was generated" $out/check_$pid.txt; }; then
-  (cd $V && python3 check.py $pid --tier $tier > $out/check_$pid.txt 2>$out/check_$pid.err; echo "exit=$? (tier $tier, full check; native sweep flagged nothing the restricted runs could decide)" >> $out/check_$pid.txt)
-fi
-tif [ -n "$hits" ]; then
-  (cd $V && VERIF_ONLY="$hits" python3 check.py $pid --tier $tier > $out/check_$pid.txt 2>$out/check_$pid.err; echo "exit=$? (tier $tier, restricted to the harnesses the native sweep flagged: $hits)" >> $out/check_$pid.txt)
-  if ! grep -q "^VIOLATION" $out/check_$pid.txt && [ "$tier" = quick ]; then
-    # the flagged harnesses may belong to the thorough tier only (larger bounds, slow ones)
-    (cd $V && VERIF_ONLY="$hits" python3 check.py $pid --tier thorough > $out/check_${pid}_thorough.txt 2>$out/check_${pid}_thorough.err; echo "exit=$? (tier thorough, restricted to the harnesses the native sweep flagged: $hits)" >> $out/check_${pid}_thorough.txt)
-    if grep -q "^VIOLATION" $out/check_${pid}_thorough.txt; then cp $out/check_${pid}_thorough.txt $out/check_$pid.txt; fi
-  fi
-fi
-if [ -z "$hits" ] || { ! grep -q "^VIOLATION" $out/check_$pid.txt && grep -q "no obligation was generated" $out/check_$pid.txt; }; then
-  (cd $V && python3 check.py $pid --tier $tier > $out/check_$pid.txt 2>$out/check_$pid.err; echo "exit=$? (tier $tier, full check; native sweep flagged nothing the restricted runs could decide)" >> $out/check_$pid.txt)
-fi
-sif [ -n "$hits" ]; then
-  (cd $V && VERIF_ONLY="$hits" python3 check.py $pid --tier $tier > $out/check_$pid.txt 2>$out/check_$pid.err; echo "exit=$? (tier $tier, restricted to the harnesses the native sweep flagged: $hits)" >> $out/check_$pid.txt)
-  if ! grep -q "^VIOLATION" $out/check_$pid.txt && [ "$tier" = quick ]; then
-    # the flagged harnesses may belong to the thorough tier only (larger bounds, slow ones)
-    (cd $V && VERIF_ONLY="$hits" python3 check.py $pid --tier thorough > $out/check_${pid}_thorough.txt 2>$out/check_${pid}_thorough.err; echo "exit=$? (tier thorough, restricted to the harnesses the native sweep flagged: $hits)" >> $out/check_${pid}_thorough.txt)
-    if grep -q "^VIOLATION" $out/check_${pid}_thorough.txt; then cp $out/check_${pid}_thorough.txt $out/check_$pid.txt; fi
-  fi
-fi
-if [ -z "$hits" ] || { ! grep -q "^VIOLATION" $out/check_$pid.txt && grep -q "no obligation was generated" $out/check_$pid.txt; }; then
-  (cd $V && python3 check.py $pid --tier $tier > $out/check_$pid.txt 2>$out/check_$pid.err; echo "exit=$? (tier $tier, full check; native sweep flagged nothing the restricted runs could decide)" >> $out/check_$pid.txt)
-fi
- if [ -n "$hits" ]; then
-  (cd $V && VERIF_ONLY="$hits" python3 check.py $pid --tier $tier > $out/check_$pid.txt 2>$out/check_$pid.err; echo "exit=$? (tier $tier, restricted to the harnesses the native sweep flagged: $hits)" >> $out/check_$pid.txt)
-  if ! grep -q "^VIOLATION" $out/check_$pid.txt && [ "$tier" = quick ]; then
-    # the flagged harnesses may belong to the thorough tier only (larger bounds, slow ones)
-    (cd $V && VERIF_ONLY="$hits" python3 check.py $pid --tier thorough > $out/check_${pid}_thorough.txt 2>$out/check_${pid}_thorough.err; echo "exit=$? (tier thorough, restricted to the harnesses the native sweep flagged: $hits)" >> $out/check_${pid}_thorough.txt)
-    if grep -q "^VIOLATION" $out/check_${pid}_thorough.txt; then cp $out/check_${pid}_thorough.txt $out/check_$pid.txt; fi
-  fi
-fi
-if [ -z "$hits" ] || { ! grep -q "^VIOLATION" $out/check_$pid.txt && grep -q "no obligation was generated" $out/check_$pid.txt; }; then
-  (cd $V && python3 check.py $pid --tier $tier > $out/check_$pid.txt 2>$out/check_$pid.err; echo "exit=$? (tier $tier, full check; native sweep flagged nothing the restricted runs could decide)" >> $out/check_$pid.txt)
-fi
-oif [ -n "$hits" ]; then
-  (cd $V && VERIF_ONLY="$hits" python3 check.py $pid --tier $tier > $out/check_$pid.txt 2>$out/check_$pid.err; echo "exit=$? (tier $tier, restricted to the harnesses the native sweep flagged: $hits)" >> $out/check_$pid.txt)
-  if ! grep -q "^VIOLATION" $out/check_$pid.txt && [ "$tier" = quick ]; then
-    # the flagged harnesses may belong to the thorough tier only (larger bounds, slow ones)
-    (cd $V && VERIF_ONLY="$hits" python3 check.py $pid --tier thorough > $out/check_${pid}_thorough.txt 2>$out/check_${pid}_thorough.err; echo "exit=$? (tier thorough, restricted to the harnesses the native sweep flagged: $hits)" >> $out/check_${pid}_thorough.txt)
-    if grep -q "^VIOLATION" $out/check_${pid}_thorough.txt; then cp $out/check_${pid}_thorough.txt $out/check_$pid.txt; fi
-  fi
-fi
-if [ -z "$hits" ] || { ! grep -q "^VIOLATION" $out/check_$pid.txt && grep -q "no obligation was generated" $out/check_$pid.txt; }; then
-  (cd $V && python3 check.py $pid --tier $tier > $out/check_$pid.txt 2>$out/check_$pid.err; echo "exit=$? (tier $tier, full check; native sweep flagged nothing the restricted runs could decide)" >> $out/check_$pid.txt)
-fi
-fif [ -n "$hits" ]; then
-  (cd $V && VERIF_ONLY="$hits" python3 check.py $pid --tier $tier > $out/check_$pid.txt 2>$out/check_$pid.err; echo "exit=$? (tier $tier, restricted to the harnesses the native sweep flagged: $hits)" >> $out/check_$pid.txt)
-  if ! grep -q "^VIOLATION" $out/check_$pid.txt && [ "$tier" = quick ]; then
-    # the flagged harnesses may belong to the thorough tier only (larger bounds, slow ones)
-    (cd $V && VERIF_ONLY="$hits" python3 check.py $pid --tier thorough > $out/check_${pid}_thorough.txt 2>$out/check_${pid}_thorough.err; echo "exit=$? (tier thorough, restricted to the harnesses the native sweep flagged: $hits)" >> $out/check_${pid}_thorough.txt)
-    if grep -q "^VIOLATION" $out/check_${pid}_thorough.txt; then cp $out/check_${pid}_thorough.txt $out/check_$pid.txt; fi
-  fi
-fi
-if [ -z "$hits" ] || { ! grep -q "^VIOLATION" $out/check_$pid.txt && grep -q "no obligation was generated" $out/check_$pid.txt; }; then
-  (cd $V && python3 check.py $pid --tier $tier > $out/check_$pid.txt 2>$out/check_$pid.err; echo "exit=$? (tier $tier, full check; native sweep flagged nothing the restricted runs could decide)" >> $out/check_$pid.txt)
-fi
- if [ -n "$hits" ]; then
-  (cd $V && VERIF_ONLY="$hits" python3 check.py $pid --tier $tier > $out/check_$pid.txt 2>$out/check_$pid.err; echo "exit=$? (tier $tier, restricted to the harnesses the native sweep flagged: $hits)" >> $out/check_$pid.txt)
-  if ! grep -q "^VIOLATION" $out/check_$pid.txt && [ "$tier" = quick ]; then
-    # the flagged harnesses may belong to the thorough tier only (larger bounds, slow ones)
-    (cd $V && VERIF_ONLY="$hits" python3 check.py $pid --tier thorough > $out/check_${pid}_thorough.txt 2>$out/check_${pid}_thorough.err; echo "exit=$? (tier thorough, restricted to the harnesses the native sweep flagged: $hits)" >> $out/check_${pid}_thorough.txt)
-    if grep -q "^VIOLATION" $out/check_${pid}_thorough.txt; then cp $out/check_${pid}_thorough.txt $out/check_$pid.txt; fi
-  fi
-fi
-if [ -z "$hits" ] || { ! grep -q "^VIOLATION" $out/check_$pid.txt && grep -q "no obligation was generated" $out/check_$pid.txt; }; then
-  (cd $V && python3 check.py $pid --tier $tier > $out/check_$pid.txt 2>$out/check_$pid.err; echo "exit=$? (tier $tier, full check; native sweep flagged nothing the restricted runs could decide)" >> $out/check_$pid.txt)
-fi
-tif [ -n "$hits" ]; then
-  (cd $V && VERIF_ONLY="$hits" python3 check.py $pid --tier $tier > $out/check_$pid.txt 2>$out/check_$pid.err; echo "exit=$? (tier $tier, restricted to the harnesses the native sweep flagged: $hits)" >> $out/check_$pid.txt)
-  if ! grep -q "^VIOLATION" $out/check_$pid.txt && [ "$tier" = quick ]; then
-    # the flagged harnesses may belong to the thorough tier only (larger bounds, slow ones)
-    (cd $V && VERIF_ONLY="$hits" python3 check.py $pid --tier thorough > $out/check_${pid}_thorough.txt 2>$out/check_${pid}_thorough.err; echo "exit=$? (tier thorough, restricted to the harnesses the native sweep flagged: $hits)" >> $out/check_${pid}_thorough.txt)
-    if grep -q "^VIOLATION" $out/check_${pid}_thorough.txt; then cp $out/check_${pid}_thorough.txt $out/check_$pid.txt; fi
-  fi
-fi
-if [ -z "$hits" ] || { ! grep -q "^VIOLATION" $out/check_$pid.txt && grep -q "no obligation was generated" $out/check_$pid.txt; }; then
-  (cd $V && python3 check.py $pid --tier $tier > $out/check_$pid.txt 2>$out/check_$pid.err; echo "exit=$? (tier $tier, full check; native sweep flagged nothing the restricted runs could decide)" >> $out/check_$pid.txt)
-fi
-hif [ -n "$hits" ]; then
-  (cd $V && VERIF_ONLY="$hits" python3 check.py $pid --tier $tier > $out/check_$pid.txt 2>$out/check_$pid.err; echo "exit=$? (tier $tier, restricted to the harnesses the native sweep flagged: $hits)" >> $out/check_$pid.txt)
-  if ! grep -q "^VIOLATION" $out/check_$pid.txt && [ "$tier" = quick ]; then
-    # the flagged harnesses may belong to the thorough tier only (larger bounds, slow ones)
-    (cd $V && VERIF_ONLY="$hits" python3 check.py $pid --tier thorough > $out/check_${pid}_thorough.txt 2>$out/check_${pid}_thorough.err; echo "exit=$? (tier thorough, restricted to the harnesses the native sweep flagged: $hits)" >> $out/check_${pid}_thorough.txt)
-    if grep -q "^VIOLATION" $out/check_${pid}_thorough.txt; then cp $out/check_${pid}_thorough.txt $out/check_$pid.txt; fi
-  fi
-fi
-if [ -z "$hits" ] || { ! grep -q "^VIOLATION" $out/check_$pid.txt && grep -q "no obligation was generated" $out/check_$pid.txt; }; then
-  (cd $V && python3 check.py $pid --tier $tier > $out/check_$pid.txt 2>$out/check_$pid.err; echo "exit=$? (tier $tier, full check; native sweep flagged nothing the restricted runs could decide)" >> $out/check_$pid.txt)
-fi
-eif [ -n "$hits" ]; then
-  (cd $V && VERIF_ONLY="$hits" python3 check.py $pid --tier $tier > $out/check_$pid.txt 2>$out/check_$pid.err; echo "exit=$? (tier $tier, restricted to the harnesses the native sweep flagged: $hits)" >> $out/check_$pid.txt)
-  if ! grep -q "^VIOLATION" $out/check_$pid.txt && [ "$tier" = quick ]; then
-    # the flagged harnesses may belong to the thorough tier only (larger bounds, slow ones)
-    (cd $V && VERIF_ONLY="$hits" python3 check.py $pid --tier thorough > $out/check_${pid}_thorough.txt 2>$out/check_${pid}_thorough.err; echo "exit=$? (tier thorough, restricted to the harnesses the native sweep flagged: $hits)" >> $out/check_${pid}_thorough.txt)
-    if grep -q "^VIOLATION" $out/check_${pid}_thorough.txt; then cp $out/check_${pid}_thorough.txt $out/check_$pid.txt; fi
-  fi
-fi
-if [ -z "$hits" ] || { ! grep -q "^VIOLATION" $out/check_$pid.txt && grep -q "no obligation was generated" $out/check_$pid.txt; }; then
-  (cd $V && python3 check.py $pid --tier $tier > $out/check_$pid.txt 2>$out/check_$pid.err; echo "exit=$? (tier $tier, full check; native sweep flagged nothing the restricted runs could decide)" >> $out/check_$pid.txt)
-fi
- if [ -n "$hits" ]; then
-  (cd $V && VERIF_ONLY="$hits" python3 check.py $pid --tier $tier > $out/check_$pid.txt 2>$out/check_$pid.err; echo "exit=$? (tier $tier, restricted to the harnesses the native sweep flagged: $hits)" >> $out/check_$pid.txt)
-  if ! grep -q "^VIOLATION" $out/check_$pid.txt && [ "$tier" = quick ]; then
-    # the flagged harnesses may belong to the thorough tier only (larger bounds, slow ones)
-    (cd $V && VERIF_ONLY="$hits" python3 check.py $pid --tier thorough > $out/check_${pid}_thorough.txt 2>$out/check_${pid}_thorough.err; echo "exit=$? (tier thorough, restricted to the harnesses the native sweep flagged: $hits)" >> $out/check_${pid}_thorough.txt)
-    if grep -q "^VIOLATION" $out/check_${pid}_thorough.txt; then cp $out/check_${pid}_thorough.txt $out/check_$pid.txt; fi
-  fi
-fi
-if [ -z "$hits" ] || { ! grep -q "^VIOLATION" $out/check_$pid.txt && grep -q "no obligation was generated" $out/check_$pid.txt; }; then
-  (cd $V && python3 check.py $pid --tier $tier > $out/check_$pid.txt 2>$out/check_$pid.err; echo "exit=$? (tier $tier, full check; native sweep flagged nothing the restricted runs could decide)" >> $out/check_$pid.txt)
-fi
-sif [ -n "$hits" ]; then
-  (cd $V && VERIF_ONLY="$hits" python3 check.py $pid --tier $tier > $out/check_$pid.txt 2>$out/check_$pid.err; echo "exit=$? (tier $tier, restricted to the harnesses the native sweep flagged: $hits)" >> $out/check_$pid.txt)
-  if ! grep -q "^VIOLATION" $out/check_$pid.txt && [ "$tier" = quick ]; then
-    # the flagged harnesses may belong to the thorough tier only (larger bounds, slow ones)
-    (cd $V && VERIF_ONLY="$hits" python3 check.py $pid --tier thorough > $out/check_${pid}_thorough.txt 2>$out/check_${pid}_thorough.err; echo "exit=$? (tier thorough, restricted to the harnesses the native sweep flagged: $hits)" >> $out/check_${pid}_thorough.txt)
-    if grep -q "^VIOLATION" $out/check_${pid}_thorough.txt; then cp $out/check_${pid}_thorough.txt $out/check_$pid.txt; fi
-  fi
-fi
-if [ -z "$hits" ] || { ! grep -q "^VIOLATION" $out/check_$pid.txt && grep -q "no obligation was generated" $out/check_$pid.txt; }; then
-  (cd $V && python3 check.py $pid --tier $tier > $out/check_$pid.txt 2>$out/check_$pid.err; echo "exit=$? (tier $tier, full check; native sweep flagged nothing the restricted runs could decide)" >> $out/check_$pid.txt)
-fi
-eif [ -n "$hits" ]; then
-  (cd $V && VERIF_ONLY="$hits" python3 check.py $pid --tier $tier > $out/check_$pid.txt 2>$out/check_$pid.err; echo "exit=$? (tier $tier, restricted to the harnesses the native sweep flagged: $hits)" >> $out/check_$pid.txt)
-  if ! grep -q "^VIOLATION" $out/check_$pid.txt && [ "$tier" = quick ]; then
-    # the flagged harnesses may belong to the thorough tier only (larger bounds, slow ones)
-    (cd $V && VERIF_ONLY="$hits" python3 check.py $pid --tier thorough > $out/check_${pid}_thorough.txt 2>$out/check_${pid}_thorough.err; echo "exit=$? (tier thorough, restricted to the harnesses the native sweep flagged: $hits)" >> $out/check_${pid}_thorough.txt)
-    if grep -q "^VIOLATION" $out/check_${pid}_thorough.txt; then cp $out/check_${pid}_thorough.txt $out/check_$pid.txt; fi
-  fi
-fi
-if [ -z "$hits" ] || { ! grep -q "^VIOLATION" $out/check_$pid.txt && grep -q "no obligation was generated" $out/check_$pid.txt; }; then
-  (cd $V && python3 check.py $pid --tier $tier > $out/check_$pid.txt 2>$out/check_$pid.err; echo "exit=$? (tier $tier, full check; native sweep flagged nothing the restricted runs could decide)" >> $out/check_$pid.txt)
-fi
-eif [ -n "$hits" ]; then
-  (cd $V && VERIF_ONLY="$hits" python3 check.py $pid --tier $tier > $out/check_$pid.txt 2>$out/check_$pid.err; echo "exit=$? (tier $tier, restricted to the harnesses the native sweep flagged: $hits)" >> $out/check_$pid.txt)
-  if ! grep -q "^VIOLATION" $out/check_$pid.txt && [ "$tier" = quick ]; then
-    # the flagged harnesses may belong to the thorough tier only (larger bounds, slow ones)
-    (cd $V && VERIF_ONLY="$hits" python3 check.py $pid --tier thorough > $out/check_${pid}_thorough.txt 2>$out/check_${pid}_thorough.err; echo "exit=$? (tier thorough, restricted to the harnesses the native sweep flagged: $hits)" >> $out/check_${pid}_thorough.txt)
-    if grep -q "^VIOLATION" $out/check_${pid}_thorough.txt; then cp $out/check_${pid}_thorough.txt $out/check_$pid.txt; fi
-  fi
-fi
-if [ -z "$hits" ] || { ! grep -q "^VIOLATION" $out/check_$pid.txt && grep -q "no obligation was generated" $out/check_$pid.txt; }; then
-  (cd $V && python3 check.py $pid --tier $tier > $out/check_$pid.txt 2>$out/check_$pid.err; echo "exit=$? (tier $tier, full check; native sweep flagged nothing the restricted runs could decide)" >> $out/check_$pid.txt)
-fi
-dif [ -n "$hits" ]; then
-  (cd $V && VERIF_ONLY="$hits" python3 check.py $pid --tier $tier > $out/check_$pid.txt 2>$out/check_$pid.err; echo "exit=$? (tier $tier, restricted to the harnesses the native sweep flagged: $hits)" >> $out/check_$pid.txt)
-  if ! grep -q "^VIOLATION" $out/check_$pid.txt && [ "$tier" = quick ]; then
-    # the flagged harnesses may belong to the thorough tier only (larger bounds, slow ones)
-    (cd $V && VERIF_ONLY="$hits" python3 check.py $pid --tier thorough > $out/check_${pid}_thorough.txt 2>$out/check_${pid}_thorough.err; echo "exit=$? (tier thorough, restricted to the harnesses the native sweep flagged: $hits)" >> $out/check_${pid}_thorough.txt)
-    if grep -q "^VIOLATION" $out/check_${pid}_thorough.txt; then cp $out/check_${pid}_thorough.txt $out/check_$pid.txt; fi
-  fi
-fi
-if [ -z "$hits" ] || { ! grep -q "^VIOLATION" $out/check_$pid.txt && grep -q "no obligation was generated" $out/check_$pid.txt; }; then
-  (cd $V && python3 check.py $pid --tier $tier > $out/check_$pid.txt 2>$out/check_$pid.err; echo "exit=$? (tier $tier, full check; native sweep flagged nothing the restricted runs could decide)" >> $out/check_$pid.txt)
-fi
-eif [ -n "$hits" ]; then
-  (cd $V && VERIF_ONLY="$hits" python3 check.py $pid --tier $tier > $out/check_$pid.txt 2>$out/check_$pid.err; echo "exit=$? (tier $tier, restricted to the harnesses the native sweep flagged: $hits)" >> $out/check_$pid.txt)
-  if ! grep -q "^VIOLATION" $out/check_$pid.txt && [ "$tier" = quick ]; then
-    # the flagged harnesses may belong to the thorough tier only (larger bounds, slow ones)
-    (cd $V && VERIF_ONLY="$hits" python3 check.py $pid --tier thorough > $out/check_${pid}_thorough.txt 2>$out/check_${pid}_thorough.err; echo "exit=$? (tier thorough, restricted to the harnesses the native sweep flagged: $hits)" >> $out/check_${pid}_thorough.txt)
-    if grep -q "^VIOLATION" $out/check_${pid}_thorough.txt; then cp $out/check_${pid}_thorough.txt $out/check_$pid.txt; fi
-  fi
-fi
-if [ -z "$hits" ] || { ! grep -q "^VIOLATION" $out/check_$pid.txt && grep -q "no obligation was generated" $out/check_$pid.txt; }; then
-  (cd $V && python3 check.py $pid --tier $tier > $out/check_$pid.txt 2>$out/check_$pid.err; echo "exit=$? (tier $tier, full check; native sweep flagged nothing the restricted runs could decide)" >> $out/check_$pid.txt)
-fi
-dif [ -n "$hits" ]; then
-  (cd $V && VERIF_ONLY="$hits" python3 check.py $pid --tier $tier > $out/check_$pid.txt 2>$out/check_$pid.err; echo "exit=$? (tier $tier, restricted to the harnesses the native sweep flagged: $hits)" >> $out/check_$pid.txt)
-  if ! grep -q "^VIOLATION" $out/check_$pid.txt && [ "$tier" = quick ]; then
-    # the flagged harnesses may belong to the thorough tier only (larger bounds, slow ones)
-    (cd $V && VERIF_ONLY="$hits" python3 check.py $pid --tier thorough > $out/check_${pid}_thorough.txt 2>$out/check_${pid}_thorough.err; echo "exit=$? (tier thorough, restricted to the harnesses the native sweep flagged: $hits)" >> $out/check_${pid}_thorough.txt)
-    if grep -q "^VIOLATION" $out/check_${pid}_thorough.txt; then cp $out/check_${pid}_thorough.txt $out/check_$pid.txt; fi
-  fi
-fi
-if [ -z "$hits" ] || { ! grep -q "^VIOLATION" $out/check_$pid.txt && grep -q "no obligation was generated" $out/check_$pid.txt; }; then
-  (cd $V && python3 check.py $pid --tier $tier > $out/check_$pid.txt 2>$out/check_$pid.err; echo "exit=$? (tier $tier, full check; native sweep flagged nothing the restricted runs could decide)" >> $out/check_$pid.txt)
-fi
- if [ -n "$hits" ]; then
-  (cd $V && VERIF_ONLY="$hits" python3 check.py $pid --tier $tier > $out/check_$pid.txt 2>$out/check_$pid.err; echo "exit=$? (tier $tier, restricted to the harnesses the native sweep flagged: $hits)" >> $out/check_$pid.txt)
-  if ! grep -q "^VIOLATION" $out/check_$pid.txt && [ "$tier" = quick ]; then
-    # the flagged harnesses may belong to the thorough tier only (larger bounds, slow ones)
-    (cd $V && VERIF_ONLY="$hits" python3 check.py $pid --tier thorough > $out/check_${pid}_thorough.txt 2>$out/check_${pid}_thorough.err; echo "exit=$? (tier thorough, restricted to the harnesses the native sweep flagged: $hits)" >> $out/check_${pid}_thorough.txt)
-    if grep -q "^VIOLATION" $out/check_${pid}_thorough.txt; then cp $out/check_${pid}_thorough.txt $out/check_$pid.txt; fi
-  fi
-fi
-if [ -z "$hits" ] || { ! grep -q "^VIOLATION" $out/check_$pid.txt && grep -q "no obligation was generated" $out/check_$pid.txt; }; then
-  (cd $V && python3 check.py $pid --tier $tier > $out/check_$pid.txt 2>$out/check_$pid.err; echo "exit=$? (tier $tier, full check; native sweep flagged nothing the restricted runs could decide)" >> $out/check_$pid.txt)
-fi
-cif [ -n "$hits" ]; then
-  (cd $V && VERIF_ONLY="$hits" python3 check.py $pid --tier $tier > $out/check_$pid.txt 2>$out/check_$pid.err; echo "exit=$? (tier $tier, restricted to the harnesses the native sweep flagged: $hits)" >> $out/check_$pid.txt)
-  if ! grep -q "^VIOLATION" $out/check_$pid.txt && [ "$tier" = quick ]; then
-    # the flagged harnesses may belong to the thorough tier only (larger bounds, slow ones)
-    (cd $V && VERIF_ONLY="$hits" python3 check.py $pid --tier thorough > $out/check_${pid}_thorough.txt 2>$out/check_${pid}_thorough.err; echo "exit=$? (tier thorough, restricted to the harnesses the native sweep flagged: $hits)" >> $out/check_${pid}_thorough.txt)
-    if grep -q "^VIOLATION" $out/check_${pid}_thorough.txt; then cp $out/check_${pid}_thorough.txt $out/check_$pid.txt; fi
-  fi
-fi
-if [ -z "$hits" ] || { ! grep -q "^VIOLATION" $out/check_$pid.txt && grep -q "no obligation was generated" $out/check_$pid.txt; }; then
-  (cd $V && python3 check.py $pid --tier $tier > $out/check_$pid.txt 2>$out/check_$pid.err; echo "exit=$? (tier $tier, full check; native sweep flagged nothing the restricted runs could decide)" >> $out/check_$pid.txt)
-fi
-hif [ -n "$hits" ]; then
-  (cd $V && VERIF_ONLY="$hits" python3 check.py $pid --tier $tier > $out/check_$pid.txt 2>$out/check_$pid.err; echo "exit=$? (tier $tier, restricted to the harnesses the native sweep flagged: $hits)" >> $out/check_$pid.txt)
-  if ! grep -q "^VIOLATION" $out/check_$pid.txt && [ "$tier" = quick ]; then
-    # the flagged harnesses may belong to the thorough tier only (larger bounds, slow ones)
-    (cd $V && VERIF_ONLY="$hits" python3 check.py $pid --tier thorough > $out/check_${pid}_thorough.txt 2>$out/check_${pid}_thorough.err; echo "exit=$? (tier thorough, restricted to the harnesses the native sweep flagged: $hits)" >> $out/check_${pid}_thorough.txt)
-    if grep -q "^VIOLATION" $out/check_${pid}_thorough.txt; then cp $out/check_${pid}_thorough.txt $out/check_$pid.txt; fi
-  fi
-fi
-if [ -z "$hits" ] || { ! grep -q "^VIOLATION" $out/check_$pid.txt && grep -q "no obligation was generated" $out/check_$pid.txt; }; then
-  (cd $V && python3 check.py $pid --tier $tier > $out/check_$pid.txt 2>$out/check_$pid.err; echo "exit=$? (tier $tier, full check; native sweep flagged nothing the restricted runs could decide)" >> $out/check_$pid.txt)
-fi
-aif [ -n "$hits" ]; then
-  (cd $V && VERIF_ONLY="$hits" python3 check.py $pid --tier $tier > $out/check_$pid.txt 2>$out/check_$pid.err; echo "exit=$? (tier $tier, restricted to the harnesses the native sweep flagged: $hits)" >> $out/check_$pid.txt)
-  if ! grep -q "^VIOLATION" $out/check_$pid.txt && [ "$tier" = quick ]; then
-    # the flagged harnesses may belong to the thorough tier only (larger bounds, slow ones)
-    (cd $V && VERIF_ONLY="$hits" python3 check.py $pid --tier thorough > $out/check_${pid}_thorough.txt 2>$out/check_${pid}_thorough.err; echo "exit=$? (tier thorough, restricted to the harnesses the native sweep flagged: $hits)" >> $out/check_${pid}_thorough.txt)
-    if grep -q "^VIOLATION" $out/check_${pid}_thorough.txt; then cp $out/check_${pid}_thorough.txt $out/check_$pid.txt; fi
-  fi
-fi
-if [ -z "$hits" ] || { ! grep -q "^VIOLATION" $out/check_$pid.txt && grep -q "no obligation was generated" $out/check_$pid.txt; }; then
-  (cd $V && python3 check.py $pid --tier $tier > $out/check_$pid.txt 2>$out/check_$pid.err; echo "exit=$? (tier $tier, full check; native sweep flagged nothing the restricted runs could decide)" >> $out/check_$pid.txt)
-fi
-nif [ -n "$hits" ]; then
-  (cd $V && VERIF_ONLY="$hits" python3 check.py $pid --tier $tier > $out/check_$pid.txt 2>$out/check_$pid.err; echo "exit=$? (tier $tier, restricted to the harnesses the native sweep flagged: $hits)" >> $out/check_$pid.txt)
-  if ! grep -q "^VIOLATION" $out/check_$pid.txt && [ "$tier" = quick ]; then
-    # the flagged harnesses may belong to the thorough tier only (larger bounds, slow ones)
-    (cd $V && VERIF_ONLY="$hits" python3 check.py $pid --tier thorough > $out/check_${pid}_thorough.txt 2>$out/check_${pid}_thorough.err; echo "exit=$? (tier thorough, restricted to the harnesses the native sweep flagged: $hits)" >> $out/check_${pid}_thorough.txt)
-    if grep -q "^VIOLATION" $out/check_${pid}_thorough.txt; then cp $out/check_${pid}_thorough.txt $out/check_$pid.txt; fi
-  fi
-fi
-if [ -z "$hits" ] || { ! grep -q "^VIOLATION" $out/check_$pid.txt && grep -q "no obligation was generated" $out/check_$pid.txt; }; then
-  (cd $V && python3 check.py $pid --tier $tier > $out/check_$pid.txt 2>$out/check_$pid.err; echo "exit=$? (tier $tier, full check; native sweep flagged nothing the restricted runs could decide)" >> $out/check_$pid.txt)
-fi
-gif [ -n "$hits" ]; then
-  (cd $V && VERIF_ONLY="$hits" python3 check.py $pid --tier $tier > $out/check_$pid.txt 2>$out/check_$pid.err; echo "exit=$? (tier $tier, restricted to the harnesses the native sweep flagged: $hits)" >> $out/check_$pid.txt)
-  if ! grep -q "^VIOLATION" $out/check_$pid.txt && [ "$tier" = quick ]; then
-    # the flagged harnesses may belong to the thorough tier only (larger bounds, slow ones)
-    (cd $V && VERIF_ONLY="$hits" python3 check.py $pid --tier thorough > $out/check_${pid}_thorough.txt 2>$out/check_${pid}_thorough.err; echo "exit=$? (tier thorough, restricted to the harnesses the native sweep flagged: $hits)" >> $out/check_${pid}_thorough.txt)
-    if grep -q "^VIOLATION" $out/check_${pid}_thorough.txt; then cp $out/check_${pid}_thorough.txt $out/check_$pid.txt; fi
-  fi
-fi
-if [ -z "$hits" ] || { ! grep -q "^VIOLATION" $out/check_$pid.txt && grep -q "no obligation was generated" $out/check_$pid.txt; }; then
-  (cd $V && python3 check.py $pid --tier $tier > $out/check_$pid.txt 2>$out/check_$pid.err; echo "exit=$? (tier $tier, full check; native sweep flagged nothing the restricted runs could decide)" >> $out/check_$pid.txt)
-fi
-eif [ -n "$hits" ]; then
-  (cd $V && VERIF_ONLY="$hits" python3 check.py $pid --tier $tier > $out/check_$pid.txt 2>$out/check_$pid.err; echo "exit=$? (tier $tier, restricted to the harnesses the native sweep flagged: $hits)" >> $out/check_$pid.txt)
-  if ! grep -q "^VIOLATION" $out/check_$pid.txt && [ "$tier" = quick ]; then
-    # the flagged harnesses may belong to the thorough tier only (larger bounds, slow ones)
-    (cd $V && VERIF_ONLY="$hits" python3 check.py $pid --tier thorough > $out/check_${pid}_thorough.txt 2>$out/check_${pid}_thorough.err; echo "exit=$? (tier thorough, restricted to the harnesses the native sweep flagged: $hits)" >> $out/check_${pid}_thorough.txt)
-    if grep -q "^VIOLATION" $out/check_${pid}_thorough.txt; then cp $out/check_${pid}_thorough.txt $out/check_$pid.txt; fi
-  fi
-fi
-if [ -z "$hits" ] || { ! grep -q "^VIOLATION" $out/check_$pid.txt && grep -q "no obligation was generated" $out/check_$pid.txt; }; then
-  (cd $V && python3 check.py $pid --tier $tier > $out/check_$pid.txt 2>$out/check_$pid.err; echo "exit=$? (tier $tier, full check; native sweep flagged nothing the restricted runs could decide)" >> $out/check_$pid.txt)
-fi
-
-if [ -n "$hits" ]; then
-  (cd $V && VERIF_ONLY="$hits" python3 check.py $pid --tier $tier > $out/check_$pid.txt 2>$out/check_$pid.err; echo "exit=$? (tier $tier, restricted to the harnesses the native sweep flagged: $hits)" >> $out/check_$pid.txt)
-  if ! grep -q "^VIOLATION" $out/check_$pid.txt && [ "$tier" = quick ]; then
-    # the flagged harnesses may belong to the thorough tier only (larger bounds, slow ones)
-    (cd $V && VERIF_ONLY="$hits" python3 check.py $pid --tier thorough > $out/check_${pid}_thorough.txt 2>$out/check_${pid}_thorough.err; echo "exit=$? (tier thorough, restricted to the harnesses the native sweep flagged: $hits)" >> $out/check_${pid}_thorough.txt)
-    if grep -q "^VIOLATION" $out/check_${pid}_thorough.txt; then cp $out/check_${pid}_thorough.txt $out/check_$pid.txt; fi
-  fi
-fi
-if [ -z "$hits" ] || { ! grep -q "^VIOLATION" $out/check_$pid.txt && grep -q "no obligation was generated" $out/check_$pid.txt; }; then
-  (cd $V && python3 check.py $pid --tier $tier > $out/check_$pid.txt 2>$out/check_$pid.err; echo "exit=$? (tier $tier, full check; native sweep flagged nothing the restricted runs could decide)" >> $out/check_$pid.txt)
-fi
-iif [ -n "$hits" ]; then
-  (cd $V && VERIF_ONLY="$hits" python3 check.py $pid --tier $tier > $out/check_$pid.txt 2>$out/check_$pid.err; echo "exit=$? (tier $tier, restricted to the harnesses the native sweep flagged: $hits)" >> $out/check_$pid.txt)
-  if ! grep -q "^VIOLATION" $out/check_$pid.txt && [ "$tier" = quick ]; then
-    # the flagged harnesses may belong to the thorough tier only (larger bounds, slow ones)
-    (cd $V && VERIF_ONLY="$hits" python3 check.py $pid --tier thorough > $out/check_${pid}_thorough.txt 2>$out/check_${pid}_thorough.err; echo "exit=$? (tier thorough, restricted to the harnesses the native sweep flagged: $hits)" >> $out/check_${pid}_thorough.txt)
-    if grep -q "^VIOLATION" $out/check_${pid}_thorough.txt; then cp $out/check_${pid}_thorough.txt $out/check_$pid.txt; fi
-  fi
-fi
-if [ -z "$hits" ] || { ! grep -q "^VIOLATION" $out/check_$pid.txt && grep -q "no obligation was generated" $out/check_$pid.txt; }; then
-  (cd $V && python3 check.py $pid --tier $tier > $out/check_$pid.txt 2>$out/check_$pid.err; echo "exit=$? (tier $tier, full check; native sweep flagged nothing the restricted runs could decide)" >> $out/check_$pid.txt)
-fi
-fif [ -n "$hits" ]; then
-  (cd $V && VERIF_ONLY="$hits" python3 check.py $pid --tier $tier > $out/check_$pid.txt 2>$out/check_$pid.err; echo "exit=$? (tier $tier, restricted to the harnesses the native sweep flagged: $hits)" >> $out/check_$pid.txt)
-  if ! grep -q "^VIOLATION" $out/check_$pid.txt && [ "$tier" = quick ]; then
-    # the flagged harnesses may belong to the thorough tier only (larger bounds, slow ones)
-    (cd $V && VERIF_ONLY="$hits" python3 check.py $pid --tier thorough > $out/check_${pid}_thorough.txt 2>$out/check_${pid}_thorough.err; echo "exit=$? (tier thorough, restricted to the harnesses the native sweep flagged: $hits)" >> $out/check_${pid}_thorough.txt)
-    if grep -q "^VIOLATION" $out/check_${pid}_thorough.txt; then cp $out/check_${pid}_thorough.txt $out/check_$pid.txt; fi
-  fi
-fi
-if [ -z "$hits" ] || { ! grep -q "^VIOLATION" $out/check_$pid.txt && grep -q "no obligation was generated" $out/check_$pid.txt; }; then
-  (cd $V && python3 check.py $pid --tier $tier > $out/check_$pid.txt 2>$out/check_$pid.err; echo "exit=$? (tier $tier, full check; native sweep flagged nothing the restricted runs could decide)" >> $out/check_$pid.txt)
-fi
- if [ -n "$hits" ]; then
-  (cd $V && VERIF_ONLY="$hits" python3 check.py $pid --tier $tier > $out/check_$pid.txt 2>$out/check_$pid.err; echo "exit=$? (tier $tier, restricted to the harnesses the native sweep flagged: $hits)" >> $out/check_$pid.txt)
-  if ! grep -q "^VIOLATION" $out/check_$pid.txt && [ "$tier" = quick ]; then
-    # the flagged harnesses may belong to the thorough tier only (larger bounds, slow ones)
-    (cd $V && VERIF_ONLY="$hits" python3 check.py $pid --tier thorough > $out/check_${pid}_thorough.txt 2>$out/check_${pid}_thorough.err; echo "exit=$? (tier thorough, restricted to the harnesses the native sweep flagged: $hits)" >> $out/check_${pid}_thorough.txt)
-    if grep -q "^VIOLATION" $out/check_${pid}_thorough.txt; then cp $out/check_${pid}_thorough.txt $out/check_$pid.txt; fi
-  fi
-fi
-if [ -z "$hits" ] || { ! grep -q "^VIOLATION" $out/check_$pid.txt && grep -q "no obligation was generated" $out/check_$pid.txt; }; then
-  (cd $V && python3 check.py $pid --tier $tier > $out/check_$pid.txt 2>$out/check_$pid.err; echo "exit=$? (tier $tier, full check; native sweep flagged nothing the restricted runs could decide)" >> $out/check_$pid.txt)
-fi
-[if [ -n "$hits" ]; then
-  (cd $V && VERIF_ONLY="$hits" python3 check.py $pid --tier $tier > $out/check_$pid.txt 2>$out/check_$pid.err; echo "exit=$? (tier $tier, restricted to the harnesses the native sweep flagged: $hits)" >> $out/check_$pid.txt)
-  if ! grep -q "^VIOLATION" $out/check_$pid.txt && [ "$tier" = quick ]; then
-    # the flagged harnesses may belong to the thorough tier only (larger bounds, slow ones)
-    (cd $V && VERIF_ONLY="$hits" python3 check.py $pid --tier thorough > $out/check_${pid}_thorough.txt 2>$out/check_${pid}_thorough.err; echo "exit=$? (tier thorough, restricted to the harnesses the native sweep flagged: $hits)" >> $out/check_${pid}_thorough.txt)
-    if grep -q "^VIOLATION" $out/check_${pid}_thorough.txt; then cp $out/check_${pid}_thorough.txt $out/check_$pid.txt; fi
-  fi
-fi
-if [ -z "$hits" ] || { ! grep -q "^VIOLATION" $out/check_$pid.txt && grep -q "no obligation was generated" $out/check_$pid.txt; }; then
-  (cd $V && python3 check.py $pid --tier $tier > $out/check_$pid.txt 2>$out/check_$pid.err; echo "exit=$? (tier $tier, full check; native sweep flagged nothing the restricted runs could decide)" >> $out/check_$pid.txt)
-fi
- if [ -n "$hits" ]; then
-  (cd $V && VERIF_ONLY="$hits" python3 check.py $pid --tier $tier > $out/check_$pid.txt 2>$out/check_$pid.err; echo "exit=$? (tier $tier, restricted to the harnesses the native sweep flagged: $hits)" >> $out/check_$pid.txt)
-  if ! grep -q "^VIOLATION" $out/check_$pid.txt && [ "$tier" = quick ]; then
-    # the flagged harnesses may belong to the thorough tier only (larger bounds, slow ones)
-    (cd $V && VERIF_ONLY="$hits" python3 check.py $pid --tier thorough > $out/check_${pid}_thorough.txt 2>$out/check_${pid}_thorough.err; echo "exit=$? (tier thorough, restricted to the harnesses the native sweep flagged: $hits)" >> $out/check_${pid}_thorough.txt)
-    if grep -q "^VIOLATION" $out/check_${pid}_thorough.txt; then cp $out/check_${pid}_thorough.txt $out/check_$pid.txt; fi
-  fi
-fi
-if [ -z "$hits" ] || { ! grep -q "^VIOLATION" $out/check_$pid.txt && grep -q "no obligation was generated" $out/check_$pid.txt; }; then
-  (cd $V && python3 check.py $pid --tier $tier > $out/check_$pid.txt 2>$out/check_$pid.err; echo "exit=$? (tier $tier, full check; native sweep flagged nothing the restricted runs could decide)" >> $out/check_$pid.txt)
-fi
-!if [ -n "$hits" ]; then
-  (cd $V && VERIF_ONLY="$hits" python3 check.py $pid --tier $tier > $out/check_$pid.txt 2>$out/check_$pid.err; echo "exit=$? (tier $tier, restricted to the harnesses the native sweep flagged: $hits)" >> $out/check_$pid.txt)
-  if ! grep -q "^VIOLATION" $out/check_$pid.txt && [ "$tier" = quick ]; then
-    # the flagged harnesses may belong to the thorough tier only (larger bounds, slow ones)
-    (cd $V && VERIF_ONLY="$hits" python3 check.py $pid --tier thorough > $out/check_${pid}_thorough.txt 2>$out/check_${pid}_thorough.err; echo "exit=$? (tier thorough, restricted to the harnesses the native sweep flagged: $hits)" >> $out/check_${pid}_thorough.txt)
-    if grep -q "^VIOLATION" $out/check_${pid}_thorough.txt; then cp $out/check_${pid}_thorough.txt $out/check_$pid.txt; fi
-  fi
-fi
-if [ -z "$hits" ] || { ! grep -q "^VIOLATION" $out/check_$pid.txt && grep -q "no obligation was generated" $out/check_$pid.txt; }; then
-  (cd $V && python3 check.py $pid --tier $tier > $out/check_$pid.txt 2>$out/check_$pid.err; echo "exit=$? (tier $tier, full check; native sweep flagged nothing the restricted runs could decide)" >> $out/check_$pid.txt)
-fi
- if [ -n "$hits" ]; then
-  (cd $V && VERIF_ONLY="$hits" python3 check.py $pid --tier $tier > $out/check_$pid.txt 2>$out/check_$pid.err; echo "exit=$? (tier $tier, restricted to the harnesses the native sweep flagged: $hits)" >> $out/check_$pid.txt)
-  if ! grep -q "^VIOLATION" $out/check_$pid.txt && [ "$tier" = quick ]; then
-    # the flagged harnesses may belong to the thorough tier only (larger bounds, slow ones)
-    (cd $V && VERIF_ONLY="$hits" python3 check.py $pid --tier thorough > $out/check_${pid}_thorough.txt 2>$out/check_${pid}_thorough.err; echo "exit=$? (tier thorough, restricted to the harnesses the native sweep flagged: $hits)" >> $out/check_${pid}_thorough.txt)
-    if grep -q "^VIOLATION" $out/check_${pid}_thorough.txt; then cp $out/check_${pid}_thorough.txt $out/check_$pid.txt; fi
-  fi
-fi
-if [ -z "$hits" ] || { ! grep -q "^VIOLATION" $out/check_$pid.txt && grep -q "no obligation was generated" $out/check_$pid.txt; }; then
-  (cd $V && python3 check.py $pid --tier $tier > $out/check_$pid.txt 2>$out/check_$pid.err; echo "exit=$? (tier $tier, full check; native sweep flagged nothing the restricted runs could decide)" >> $out/check_$pid.txt)
-fi
--if [ -n "$hits" ]; then
-  (cd $V && VERIF_ONLY="$hits" python3 check.py $pid --tier $tier > $out/check_$pid.txt 2>$out/check_$pid.err; echo "exit=$? (tier $tier, restricted to the harnesses the native sweep flagged: $hits)" >> $out/check_$pid.txt)
-  if ! grep -q "^VIOLATION" $out/check_$pid.txt && [ "$tier" = quick ]; then
-    # the flagged harnesses may belong to the thorough tier only (larger bounds, slow ones)
-    (cd $V && VERIF_ONLY="$hits" python3 check.py $pid --tier thorough > $out/check_${pid}_thorough.txt 2>$out/check_${pid}_thorough.err; echo "exit=$? (tier thorough, restricted to the harnesses the native sweep flagged: $hits)" >> $out/check_${pid}_thorough.txt)
-    if grep -q "^VIOLATION" $out/check_${pid}_thorough.txt; then cp $out/check_${pid}_thorough.txt $out/check_$pid.txt; fi
-  fi
-fi
-if [ -z "$hits" ] || { ! grep -q "^VIOLATION" $out/check_$pid.txt && grep -q "no obligation was generated" $out/check_$pid.txt; }; then
-  (cd $V && python3 check.py $pid --tier $tier > $out/check_$pid.txt 2>$out/check_$pid.err; echo "exit=$? (tier $tier, full check; native sweep flagged nothing the restricted runs could decide)" >> $out/check_$pid.txt)
-fi
-sif [ -n "$hits" ]; then
-  (cd $V && VERIF_ONLY="$hits" python3 check.py $pid --tier $tier > $out/check_$pid.txt 2>$out/check_$pid.err; echo "exit=$? (tier $tier, restricted to the harnesses the native sweep flagged: $hits)" >> $out/check_$pid.txt)
-  if ! grep -q "^VIOLATION" $out/check_$pid.txt && [ "$tier" = quick ]; then
-    # the flagged harnesses may belong to the thorough tier only (larger bounds, slow ones)
-    (cd $V && VERIF_ONLY="$hits" python3 check.py $pid --tier thorough > $out/check_${pid}_thorough.txt 2>$out/check_${pid}_thorough.err; echo "exit=$? (tier thorough, restricted to the harnesses the native sweep flagged: $hits)" >> $out/check_${pid}_thorough.txt)
-    if grep -q "^VIOLATION" $out/check_${pid}_thorough.txt; then cp $out/check_${pid}_thorough.txt $out/check_$pid.txt; fi
-  fi
-fi
-if [ -z "$hits" ] || { ! grep -q "^VIOLATION" $out/check_$pid.txt && grep -q "no obligation was generated" $out/check_$pid.txt; }; then
-  (cd $V && python3 check.py $pid --tier $tier > $out/check_$pid.txt 2>$out/check_$pid.err; echo "exit=$? (tier $tier, full check; native sweep flagged nothing the restricted runs could decide)" >> $out/check_$pid.txt)
-fi
- if [ -n "$hits" ]; then
-  (cd $V && VERIF_ONLY="$hits" python3 check.py $pid --tier $tier > $out/check_$pid.txt 2>$out/check_$pid.err; echo "exit=$? (tier $tier, restricted to the harnesses the native sweep flagged: $hits)" >> $out/check_$pid.txt)
-  if ! grep -q "^VIOLATION" $out/check_$pid.txt && [ "$tier" = quick ]; then
-    # the flagged harnesses may belong to the thorough tier only (larger bounds, slow ones)
-    (cd $V && VERIF_ONLY="$hits" python3 check.py $pid --tier thorough > $out/check_${pid}_thorough.txt 2>$out/check_${pid}_thorough.err; echo "exit=$? (tier thorough, restricted to the harnesses the native sweep flagged: $hits)" >> $out/check_${pid}_thorough.txt)
-    if grep -q "^VIOLATION" $out/check_${pid}_thorough.txt; then cp $out/check_${pid}_thorough.txt $out/check_$pid.txt; fi
-  fi
-fi
-if [ -z "$hits" ] || { ! grep -q "^VIOLATION" $out/check_$pid.txt && grep -q "no obligation was generated" $out/check_$pid.txt; }; then
-  (cd $V && python3 check.py $pid --tier $tier > $out/check_$pid.txt 2>$out/check_$pid.err; echo "exit=$? (tier $tier, full check; native sweep flagged nothing the restricted runs could decide)" >> $out/check_$pid.txt)
-fi
-/if [ -n "$hits" ]; then
-  (cd $V && VERIF_ONLY="$hits" python3 check.py $pid --tier $tier > $out/check_$pid.txt 2>$out/check_$pid.err; echo "exit=$? (tier $tier, restricted to the harnesses the native sweep flagged: $hits)" >> $out/check_$pid.txt)
-  if ! grep -q "^VIOLATION" $out/check_$pid.txt && [ "$tier" = quick ]; then
-    # the flagged harnesses may belong to the thorough tier only (larger bounds, slow ones)
-    (cd $V && VERIF_ONLY="$hits" python3 check.py $pid --tier thorough > $out/check_${pid}_thorough.txt 2>$out/check_${pid}_thorough.err; echo "exit=$? (tier thorough, restricted to the harnesses the native sweep flagged: $hits)" >> $out/check_${pid}_thorough.txt)
-    if grep -q "^VIOLATION" $out/check_${pid}_thorough.txt; then cp $out/check_${pid}_thorough.txt $out/check_$pid.txt; fi
-  fi
-fi
-if [ -z "$hits" ] || { ! grep -q "^VIOLATION" $out/check_$pid.txt && grep -q "no obligation was generated" $out/check_$pid.txt; }; then
-  (cd $V && python3 check.py $pid --tier $tier > $out/check_$pid.txt 2>$out/check_$pid.err; echo "exit=$? (tier $tier, full check; native sweep flagged nothing the restricted runs could decide)" >> $out/check_$pid.txt)
-fi
-tif [ -n "$hits" ]; then
-  (cd $V && VERIF_ONLY="$hits" python3 check.py $pid --tier $tier > $out/check_$pid.txt 2>$out/check_$pid.err; echo "exit=$? (tier $tier, restricted to the harnesses the native sweep flagged: $hits)" >> $out/check_$pid.txt)
-  if ! grep -q "^VIOLATION" $out/check_$pid.txt && [ "$tier" = quick ]; then
-    # the flagged harnesses may belong to the thorough tier only (larger bounds, slow ones)
-    (cd $V && VERIF_ONLY="$hits" python3 check.py $pid --tier thorough > $out/check_${pid}_thorough.txt 2>$out/check_${pid}_thorough.err; echo "exit=$? (tier thorough, restricted to the harnesses the native sweep flagged: $hits)" >> $out/check_${pid}_thorough.txt)
-    if grep -q "^VIOLATION" $out/check_${pid}_thorough.txt; then cp $out/check_${pid}_thorough.txt $out/check_$pid.txt; fi
-  fi
-fi
-if [ -z "$hits" ] || { ! grep -q "^VIOLATION" $out/check_$pid.txt && grep -q "no obligation was generated" $out/check_$pid.txt; }; then
-  (cd $V && python3 check.py $pid --tier $tier > $out/check_$pid.txt 2>$out/check_$pid.err; echo "exit=$? (tier $tier, full check; native sweep flagged nothing the restricted runs could decide)" >> $out/check_$pid.txt)
-fi
-mif [ -n "$hits" ]; then
-  (cd $V && VERIF_ONLY="$hits" python3 check.py $pid --tier $tier > $out/check_$pid.txt 2>$out/check_$pid.err; echo "exit=$? (tier $tier, restricted to the harnesses the native sweep flagged: $hits)" >> $out/check_$pid.txt)
-  if ! grep -q "^VIOLATION" $out/check_$pid.txt && [ "$tier" = quick ]; then
-    # the flagged harnesses may belong to the thorough tier only (larger bounds, slow ones)
-    (cd $V && VERIF_ONLY="$hits" python3 check.py $pid --tier thorough > $out/check_${pid}_thorough.txt 2>$out/check_${pid}_thorough.err; echo "exit=$? (tier thorough, restricted to the harnesses the native sweep flagged: $hits)" >> $out/check_${pid}_thorough.txt)
-    if grep -q "^VIOLATION" $out/check_${pid}_thorough.txt; then cp $out/check_${pid}_thorough.txt $out/check_$pid.txt; fi
-  fi
-fi
-if [ -z "$hits" ] || { ! grep -q "^VIOLATION" $out/check_$pid.txt && grep -q "no obligation was generated" $out/check_$pid.txt; }; then
-  (cd $V && python3 check.py $pid --tier $tier > $out/check_$pid.txt 2>$out/check_$pid.err; echo "exit=$? (tier $tier, full check; native sweep flagged nothing the restricted runs could decide)" >> $out/check_$pid.txt)
-fi
-pif [ -n "$hits" ]; then
-  (cd $V && VERIF_ONLY="$hits" python3 check.py $pid --tier $tier > $out/check_$pid.txt 2>$out/check_$pid.err; echo "exit=$? (tier $tier, restricted to the harnesses the native sweep flagged: $hits)" >> $out/check_$pid.txt)
-  if ! grep -q "^VIOLATION" $out/check_$pid.txt && [ "$tier" = quick ]; then
-    # the flagged harnesses may belong to the thorough tier only (larger bounds, slow ones)
-    (cd $V && VERIF_ONLY="$hits" python3 check.py $pid --tier thorough > $out/check_${pid}_thorough.txt 2>$out/check_${pid}_thorough.err; echo "exit=$? (tier thorough, restricted to the harnesses the native sweep flagged: $hits)" >> $out/check_${pid}_thorough.txt)
-    if grep -q "^VIOLATION" $out/check_${pid}_thorough.txt; then cp $out/check_${pid}_thorough.txt $out/check_$pid.txt; fi
-  fi
-fi
-if [ -z "$hits" ] || { ! grep -q "^VIOLATION" $out/check_$pid.txt && grep -q "no obligation was generated" $out/check_$pid.txt; }; then
-  (cd $V && python3 check.py $pid --tier $tier > $out/check_$pid.txt 2>$out/check_$pid.err; echo "exit=$? (tier $tier, full check; native sweep flagged nothing the restricted runs could decide)" >> $out/check_$pid.txt)
-fi
-/if [ -n "$hits" ]; then
-  (cd $V && VERIF_ONLY="$hits" python3 check.py $pid --tier $tier > $out/check_$pid.txt 2>$out/check_$pid.err; echo "exit=$? (tier $tier, restricted to the harnesses the native sweep flagged: $hits)" >> $out/check_$pid.txt)
-  if ! grep -q "^VIOLATION" $out/check_$pid.txt && [ "$tier" = quick ]; then
-    # the flagged harnesses may belong to the thorough tier only (larger bounds, slow ones)
-    (cd $V && VERIF_ONLY="$hits" python3 check.py $pid --tier thorough > $out/check_${pid}_thorough.txt 2>$out/check_${pid}_thorough.err; echo "exit=$? (tier thorough, restricted to the harnesses the native sweep flagged: $hits)" >> $out/check_${pid}_thorough.txt)
-    if grep -q "^VIOLATION" $out/check_${pid}_thorough.txt; then cp $out/check_${pid}_thorough.txt $out/check_$pid.txt; fi
-  fi
-fi
-if [ -z "$hits" ] || { ! grep -q "^VIOLATION" $out/check_$pid.txt && grep -q "no obligation was generated" $out/check_$pid.txt; }; then
-  (cd $V && python3 check.py $pid --tier $tier > $out/check_$pid.txt 2>$out/check_$pid.err; echo "exit=$? (tier $tier, full check; native sweep flagged nothing the restricted runs could decide)" >> $out/check_$pid.txt)
-fi
-sif [ -n "$hits" ]; then
-  (cd $V && VERIF_ONLY="$hits" python3 check.py $pid --tier $tier > $out/check_$pid.txt 2>$out/check_$pid.err; echo "exit=$? (tier $tier, restricted to the harnesses the native sweep flagged: $hits)" >> $out/check_$pid.txt)
-  if ! grep -q "^VIOLATION" $out/check_$pid.txt && [ "$tier" = quick ]; then
-    # the flagged harnesses may belong to the thorough tier only (larger bounds, slow ones)
-    (cd $V && VERIF_ONLY="$hits" python3 check.py $pid --tier thorough > $out/check_${pid}_thorough.txt 2>$out/check_${pid}_thorough.err; echo "exit=$? (tier thorough, restricted to the harnesses the native sweep flagged: $hits)" >> $out/check_${pid}_thorough.txt)
-    if grep -q "^VIOLATION" $out/check_${pid}_thorough.txt; then cp $out/check_${pid}_thorough.txt $out/check_$pid.txt; fi
-  fi
-fi
-if [ -z "$hits" ] || { ! grep -q "^VIOLATION" $out/check_$pid.txt && grep -q "no obligation was generated" $out/check_$pid.txt; }; then
-  (cd $V && python3 check.py $pid --tier $tier > $out/check_$pid.txt 2>$out/check_$pid.err; echo "exit=$? (tier $tier, full check; native sweep flagged nothing the restricted runs could decide)" >> $out/check_$pid.txt)
-fi
-eif [ -n "$hits" ]; then
-  (cd $V && VERIF_ONLY="$hits" python3 check.py $pid --tier $tier > $out/check_$pid.txt 2>$out/check_$pid.err; echo "exit=$? (tier $tier, restricted to the harnesses the native sweep flagged: $hits)" >> $out/check_$pid.txt)
-  if ! grep -q "^VIOLATION" $out/check_$pid.txt && [ "$tier" = quick ]; then
-    # the flagged harnesses may belong to the thorough tier only (larger bounds, slow ones)
-    (cd $V && VERIF_ONLY="$hits" python3 check.py $pid --tier thorough > $out/check_${pid}_thorough.txt 2>$out/check_${pid}_thorough.err; echo "exit=$? (tier thorough, restricted to the harnesses the native sweep flagged: $hits)" >> $out/check_${pid}_thorough.txt)
-    if grep -q "^VIOLATION" $out/check_${pid}_thorough.txt; then cp $out/check_${pid}_thorough.txt $out/check_$pid.txt; fi
-  fi
-fi
-if [ -z "$hits" ] || { ! grep -q "^VIOLATION" $out/check_$pid.txt && grep -q "no obligation was generated" $out/check_$pid.txt; }; then
-  (cd $V && python3 check.py $pid --tier $tier > $out/check_$pid.txt 2>$out/check_$pid.err; echo "exit=$? (tier $tier, full check; native sweep flagged nothing the restricted runs could decide)" >> $out/check_$pid.txt)
-fi
-eif [ -n "$hits" ]; then
-  (cd $V && VERIF_ONLY="$hits" python3 check.py $pid --tier $tier > $out/check_$pid.txt 2>$out/check_$pid.err; echo "exit=$? (tier $tier, restricted to the harnesses the native sweep flagged: $hits)" >> $out/check_$pid.txt)
-  if ! grep -q "^VIOLATION" $out/check_$pid.txt && [ "$tier" = quick ]; then
-    # the flagged harnesses may belong to the thorough tier only (larger bounds, slow ones)
-    (cd $V && VERIF_ONLY="$hits" python3 check.py $pid --tier thorough > $out/check_${pid}_thorough.txt 2>$out/check_${pid}_thorough.err; echo "exit=$? (tier thorough, restricted to the harnesses the native sweep flagged: $hits)" >> $out/check_${pid}_thorough.txt)
-    if grep -q "^VIOLATION" $out/check_${pid}_thorough.txt; then cp $out/check_${pid}_thorough.txt $out/check_$pid.txt; fi
-  fi
-fi
-if [ -z "$hits" ] || { ! grep -q "^VIOLATION" $out/check_$pid.txt && grep -q "no obligation was generated" $out/check_$pid.txt; }; then
-  (cd $V && python3 check.py $pid --tier $tier > $out/check_$pid.txt 2>$out/check_$pid.err; echo "exit=$? (tier $tier, full check; native sweep flagged nothing the restricted runs could decide)" >> $out/check_$pid.txt)
-fi
-dif [ -n "$hits" ]; then
-  (cd $V && VERIF_ONLY="$hits" python3 check.py $pid --tier $tier > $out/check_$pid.txt 2>$out/check_$pid.err; echo "exit=$? (tier $tier, restricted to the harnesses the native sweep flagged: $hits)" >> $out/check_$pid.txt)
-  if ! grep -q "^VIOLATION" $out/check_$pid.txt && [ "$tier" = quick ]; then
-    # the flagged harnesses may belong to the thorough tier only (larger bounds, slow ones)
-    (cd $V && VERIF_ONLY="$hits" python3 check.py $pid --tier thorough > $out/check_${pid}_thorough.txt 2>$out/check_${pid}_thorough.err; echo "exit=$? (tier thorough, restricted to the harnesses the native sweep flagged: $hits)" >> $out/check_${pid}_thorough.txt)
-    if grep -q "^VIOLATION" $out/check_${pid}_thorough.txt; then cp $out/check_${pid}_thorough.txt $out/check_$pid.txt; fi
-  fi
-fi
-if [ -z "$hits" ] || { ! grep -q "^VIOLATION" $out/check_$pid.txt && grep -q "no obligation was generated" $out/check_$pid.txt; }; then
-  (cd $V && python3 check.py $pid --tier $tier > $out/check_$pid.txt 2>$out/check_$pid.err; echo "exit=$? (tier $tier, full check; native sweep flagged nothing the restricted runs could decide)" >> $out/check_$pid.txt)
-fi
-rif [ -n "$hits" ]; then
-  (cd $V && VERIF_ONLY="$hits" python3 check.py $pid --tier $tier > $out/check_$pid.txt 2>$out/check_$pid.err; echo "exit=$? (tier $tier, restricted to the harnesses the native sweep flagged: $hits)" >> $out/check_$pid.txt)
-  if ! grep -q "^VIOLATION" $out/check_$pid.txt && [ "$tier" = quick ]; then
-    # the flagged harnesses may belong to the thorough tier only (larger bounds, slow ones)
-    (cd $V && VERIF_ONLY="$hits" python3 check.py $pid --tier thorough > $out/check_${pid}_thorough.txt 2>$out/check_${pid}_thorough.err; echo "exit=$? (tier thorough, restricted to the harnesses the native sweep flagged: $hits)" >> $out/check_${pid}_thorough.txt)
-    if grep -q "^VIOLATION" $out/check_${pid}_thorough.txt; then cp $out/check_${pid}_thorough.txt $out/check_$pid.txt; fi
-  fi
-fi
-if [ -z "$hits" ] || { ! grep -q "^VIOLATION" $out/check_$pid.txt && grep -q "no obligation was generated" $out/check_$pid.txt; }; then
-  (cd $V && python3 check.py $pid --tier $tier > $out/check_$pid.txt 2>$out/check_$pid.err; echo "exit=$? (tier $tier, full check; native sweep flagged nothing the restricted runs could decide)" >> $out/check_$pid.txt)
-fi
-uif [ -n "$hits" ]; then
-  (cd $V && VERIF_ONLY="$hits" python3 check.py $pid --tier $tier > $out/check_$pid.txt 2>$out/check_$pid.err; echo "exit=$? (tier $tier, restricted to the harnesses the native sweep flagged: $hits)" >> $out/check_$pid.txt)
-  if ! grep -q "^VIOLATION" $out/check_$pid.txt && [ "$tier" = quick ]; then
-    # the flagged harnesses may belong to the thorough tier only (larger bounds, slow ones)
-    (cd $V && VERIF_ONLY="$hits" python3 check.py $pid --tier thorough > $out/check_${pid}_thorough.txt 2>$out/check_${pid}_thorough.err; echo "exit=$? (tier thorough, restricted to the harnesses the native sweep flagged: $hits)" >> $out/check_${pid}_thorough.txt)
-    if grep -q "^VIOLATION" $out/check_${pid}_thorough.txt; then cp $out/check_${pid}_thorough.txt $out/check_$pid.txt; fi
-  fi
-fi
-if [ -z "$hits" ] || { ! grep -q "^VIOLATION" $out/check_$pid.txt && grep -q "no obligation was generated" $out/check_$pid.txt; }; then
-  (cd $V && python3 check.py $pid --tier $tier > $out/check_$pid.txt 2>$out/check_$pid.err; echo "exit=$? (tier $tier, full check; native sweep flagged nothing the restricted runs could decide)" >> $out/check_$pid.txt)
-fi
-nif [ -n "$hits" ]; then
-  (cd $V && VERIF_ONLY="$hits" python3 check.py $pid --tier $tier > $out/check_$pid.txt 2>$out/check_$pid.err; echo "exit=$? (tier $tier, restricted to the harnesses the native sweep flagged: $hits)" >> $out/check_$pid.txt)
-  if ! grep -q "^VIOLATION" $out/check_$pid.txt && [ "$tier" = quick ]; then
-    # the flagged harnesses may belong to the thorough tier only (larger bounds, slow ones)
-    (cd $V && VERIF_ONLY="$hits" python3 check.py $pid --tier thorough > $out/check_${pid}_thorough.txt 2>$out/check_${pid}_thorough.err; echo "exit=$? (tier thorough, restricted to the harnesses the native sweep flagged: $hits)" >> $out/check_${pid}_thorough.txt)
-    if grep -q "^VIOLATION" $out/check_${pid}_thorough.txt; then cp $out/check_${pid}_thorough.txt $out/check_$pid.txt; fi
-  fi
-fi
-if [ -z "$hits" ] || { ! grep -q "^VIOLATION" $out/check_$pid.txt && grep -q "no obligation was generated" $out/check_$pid.txt; }; then
-  (cd $V && python3 check.py $pid --tier $tier > $out/check_$pid.txt 2>$out/check_$pid.err; echo "exit=$? (tier $tier, full check; native sweep flagged nothing the restricted runs could decide)" >> $out/check_$pid.txt)
-fi
-/if [ -n "$hits" ]; then
-  (cd $V && VERIF_ONLY="$hits" python3 check.py $pid --tier $tier > $out/check_$pid.txt 2>$out/check_$pid.err; echo "exit=$? (tier $tier, restricted to the harnesses the native sweep flagged: $hits)" >> $out/check_$pid.txt)
-  if ! grep -q "^VIOLATION" $out/check_$pid.txt && [ "$tier" = quick ]; then
-    # the flagged harnesses may belong to the thorough tier only (larger bounds, slow ones)
-    (cd $V && VERIF_ONLY="$hits" python3 check.py $pid --tier thorough > $out/check_${pid}_thorough.txt 2>$out/check_${pid}_thorough.err; echo "exit=$? (tier thorough, restricted to the harnesses the native sweep flagged: $hits)" >> $out/check_${pid}_thorough.txt)
-    if grep -q "^VIOLATION" $out/check_${pid}_thorough.txt; then cp $out/check_${pid}_thorough.txt $out/check_$pid.txt; fi
-  fi
-fi
-if [ -z "$hits" ] || { ! grep -q "^VIOLATION" $out/check_$pid.txt && grep -q "no obligation was generated" $out/check_$pid.txt; }; then
-  (cd $V && python3 check.py $pid --tier $tier > $out/check_$pid.txt 2>$out/check_$pid.err; echo "exit=$? (tier $tier, full check; native sweep flagged nothing the restricted runs could decide)" >> $out/check_$pid.txt)
-fi
-bif [ -n "$hits" ]; then
-  (cd $V && VERIF_ONLY="$hits" python3 check.py $pid --tier $tier > $out/check_$pid.txt 2>$out/check_$pid.err; echo "exit=$? (tier $tier, restricted to the harnesses the native sweep flagged: $hits)" >> $out/check_$pid.txt)
-  if ! grep -q "^VIOLATION" $out/check_$pid.txt && [ "$tier" = quick ]; then
-    # the flagged harnesses may belong to the thorough tier only (larger bounds, slow ones)
-    (cd $V && VERIF_ONLY="$hits" python3 check.py $pid --tier thorough > $out/check_${pid}_thorough.txt 2>$out/check_${pid}_thorough.err; echo "exit=$? (tier thorough, restricted to the harnesses the native sweep flagged: $hits)" >> $out/check_${pid}_thorough.txt)
-    if grep -q "^VIOLATION" $out/check_${pid}_thorough.txt; then cp $out/check_${pid}_thorough.txt $out/check_$pid.txt; fi
-  fi
-fi
-if [ -z "$hits" ] || { ! grep -q "^VIOLATION" $out/check_$pid.txt && grep -q "no obligation was generated" $out/check_$pid.txt; }; then
-  (cd $V && python3 check.py $pid --tier $tier > $out/check_$pid.txt 2>$out/check_$pid.err; echo "exit=$? (tier $tier, full check; native sweep flagged nothing the restricted runs could decide)" >> $out/check_$pid.txt)
-fi
-aif [ -n "$hits" ]; then
-  (cd $V && VERIF_ONLY="$hits" python3 check.py $pid --tier $tier > $out/check_$pid.txt 2>$out/check_$pid.err; echo "exit=$? (tier $tier, restricted to the harnesses the native sweep flagged: $hits)" >> $out/check_$pid.txt)
-  if ! grep -q "^VIOLATION" $out/check_$pid.txt && [ "$tier" = quick ]; then
-    # the flagged harnesses may belong to the thorough tier only (larger bounds, slow ones)
-    (cd $V && VERIF_ONLY="$hits" python3 check.py $pid --tier thorough > $out/check_${pid}_thorough.txt 2>$out/check_${pid}_thorough.err; echo "exit=$? (tier thorough, restricted to the harnesses the native sweep flagged: $hits)" >> $out/check_${pid}_thorough.txt)
-    if grep -q "^VIOLATION" $out/check_${pid}_thorough.txt; then cp $out/check_${pid}_thorough.txt $out/check_$pid.txt; fi
-  fi
-fi
-if [ -z "$hits" ] || { ! grep -q "^VIOLATION" $out/check_$pid.txt && grep -q "no obligation was generated" $out/check_$pid.txt; }; then
-  (cd $V && python3 check.py $pid --tier $tier > $out/check_$pid.txt 2>$out/check_$pid.err; echo "exit=$? (tier $tier, full check; native sweep flagged nothing the restricted runs could decide)" >> $out/check_$pid.txt)
-fi
-sif [ -n "$hits" ]; then
-  (cd $V && VERIF_ONLY="$hits" python3 check.py $pid --tier $tier > $out/check_$pid.txt 2>$out/check_$pid.err; echo "exit=$? (tier $tier, restricted to the harnesses the native sweep flagged: $hits)" >> $out/check_$pid.txt)
-  if ! grep -q "^VIOLATION" $out/check_$pid.txt && [ "$tier" = quick ]; then
-    # the flagged harnesses may belong to the thorough tier only (larger bounds, slow ones)
-    (cd $V && VERIF_ONLY="$hits" python3 check.py $pid --tier thorough > $out/check_${pid}_thorough.txt 2>$out/check_${pid}_thorough.err; echo "exit=$? (tier thorough, restricted to the harnesses the native sweep flagged: $hits)" >> $out/check_${pid}_thorough.txt)
-    if grep -q "^VIOLATION" $out/check_${pid}_thorough.txt; then cp $out/check_${pid}_thorough.txt $out/check_$pid.txt; fi
-  fi
-fi
-if [ -z "$hits" ] || { ! grep -q "^VIOLATION" $out/check_$pid.txt && grep -q "no obligation was generated" $out/check_$pid.txt; }; then
-  (cd $V && python3 check.py $pid --tier $tier > $out/check_$pid.txt 2>$out/check_$pid.err; echo "exit=$? (tier $tier, full check; native sweep flagged nothing the restricted runs could decide)" >> $out/check_$pid.txt)
-fi
-eif [ -n "$hits" ]; then
-  (cd $V && VERIF_ONLY="$hits" python3 check.py $pid --tier $tier > $out/check_$pid.txt 2>$out/check_$pid.err; echo "exit=$? (tier $tier, restricted to the harnesses the native sweep flagged: $hits)" >> $out/check_$pid.txt)
-  if ! grep -q "^VIOLATION" $out/check_$pid.txt && [ "$tier" = quick ]; then
-    # the flagged harnesses may belong to the thorough tier only (larger bounds, slow ones)
-    (cd $V && VERIF_ONLY="$hits" python3 check.py $pid --tier thorough > $out/check_${pid}_thorough.txt 2>$out/check_${pid}_thorough.err; echo "exit=$? (tier thorough, restricted to the harnesses the native sweep flagged: $hits)" >> $out/check_${pid}_thorough.txt)
-    if grep -q "^VIOLATION" $out/check_${pid}_thorough.txt; then cp $out/check_${pid}_thorough.txt $out/check_$pid.txt; fi
-  fi
-fi
-if [ -z "$hits" ] || { ! grep -q "^VIOLATION" $out/check_$pid.txt && grep -q "no obligation was generated" $out/check_$pid.txt; }; then
-  (cd $V && python3 check.py $pid --tier $tier > $out/check_$pid.txt 2>$out/check_$pid.err; echo "exit=$? (tier $tier, full check; native sweep flagged nothing the restricted runs could decide)" >> $out/check_$pid.txt)
-fi
-lif [ -n "$hits" ]; then
-  (cd $V && VERIF_ONLY="$hits" python3 check.py $pid --tier $tier > $out/check_$pid.txt 2>$out/check_$pid.err; echo "exit=$? (tier $tier, restricted to the harnesses the native sweep flagged: $hits)" >> $out/check_$pid.txt)
-  if ! grep -q "^VIOLATION" $out/check_$pid.txt && [ "$tier" = quick ]; then
-    # the flagged harnesses may belong to the thorough tier only (larger bounds, slow ones)
-    (cd $V && VERIF_ONLY="$hits" python3 check.py $pid --tier thorough > $out/check_${pid}_thorough.txt 2>$out/check_${pid}_thorough.err; echo "exit=$? (tier thorough, restricted to the harnesses the native sweep flagged: $hits)" >> $out/check_${pid}_thorough.txt)
-    if grep -q "^VIOLATION" $out/check_${pid}_thorough.txt; then cp $out/check_${pid}_thorough.txt $out/check_$pid.txt; fi
-  fi
-fi
-if [ -z "$hits" ] || { ! grep -q "^VIOLATION" $out/check_$pid.txt && grep -q "no obligation was generated" $out/check_$pid.txt; }; then
-  (cd $V && python3 check.py $pid --tier $tier > $out/check_$pid.txt 2>$out/check_$pid.err; echo "exit=$? (tier $tier, full check; native sweep flagged nothing the restricted runs could decide)" >> $out/check_$pid.txt)
-fi
-iif [ -n "$hits" ]; then
-  (cd $V && VERIF_ONLY="$hits" python3 check.py $pid --tier $tier > $out/check_$pid.txt 2>$out/check_$pid.err; echo "exit=$? (tier $tier, restricted to the harnesses the native sweep flagged: $hits)" >> $out/check_$pid.txt)
-  if ! grep -q "^VIOLATION" $out/check_$pid.txt && [ "$tier" = quick ]; then
-    # the flagged harnesses may belong to the thorough tier only (larger bounds, slow ones)
-    (cd $V && VERIF_ONLY="$hits" python3 check.py $pid --tier thorough > $out/check_${pid}_thorough.txt 2>$out/check_${pid}_thorough.err; echo "exit=$? (tier thorough, restricted to the harnesses the native sweep flagged: $hits)" >> $out/check_${pid}_thorough.txt)
-    if grep -q "^VIOLATION" $out/check_${pid}_thorough.txt; then cp $out/check_${pid}_thorough.txt $out/check_$pid.txt; fi
-  fi
-fi
-if [ -z "$hits" ] || { ! grep -q "^VIOLATION" $out/check_$pid.txt && grep -q "no obligation was generated" $out/check_$pid.txt; }; then
-  (cd $V && python3 check.py $pid --tier $tier > $out/check_$pid.txt 2>$out/check_$pid.err; echo "exit=$? (tier $tier, full check; native sweep flagged nothing the restricted runs could decide)" >> $out/check_$pid.txt)
-fi
-nif [ -n "$hits" ]; then
-  (cd $V && VERIF_ONLY="$hits" python3 check.py $pid --tier $tier > $out/check_$pid.txt 2>$out/check_$pid.err; echo "exit=$? (tier $tier, restricted to the harnesses the native sweep flagged: $hits)" >> $out/check_$pid.txt)
-  if ! grep -q "^VIOLATION" $out/check_$pid.txt && [ "$tier" = quick ]; then
-    # the flagged harnesses may belong to the thorough tier only (larger bounds, slow ones)
-    (cd $V && VERIF_ONLY="$hits" python3 check.py $pid --tier thorough > $out/check_${pid}_thorough.txt 2>$out/check_${pid}_thorough.err; echo "exit=$? (tier thorough, restricted to the harnesses the native sweep flagged: $hits)" >> $out/check_${pid}_thorough.txt)
-    if grep -q "^VIOLATION" $out/check_${pid}_thorough.txt; then cp $out/check_${pid}_thorough.txt $out/check_$pid.txt; fi
-  fi
-fi
-if [ -z "$hits" ] || { ! grep -q "^VIOLATION" $out/check_$pid.txt && grep -q "no obligation was generated" $out/check_$pid.txt; }; then
-  (cd $V && python3 check.py $pid --tier $tier > $out/check_$pid.txt 2>$out/check_$pid.err; echo "exit=$? (tier $tier, full check; native sweep flagged nothing the restricted runs could decide)" >> $out/check_$pid.txt)
-fi
-eif [ -n "$hits" ]; then
-  (cd $V && VERIF_ONLY="$hits" python3 check.py $pid --tier $tier > $out/check_$pid.txt 2>$out/check_$pid.err; echo "exit=$? (tier $tier, restricted to the harnesses the native sweep flagged: $hits)" >> $out/check_$pid.txt)
-  if ! grep -q "^VIOLATION" $out/check_$pid.txt && [ "$tier" = quick ]; then
-    # the flagged harnesses may belong to the thorough tier only (larger bounds, slow ones)
-    (cd $V && VERIF_ONLY="$hits" python3 check.py $pid --tier thorough > $out/check_${pid}_thorough.txt 2>$out/check_${pid}_thorough.err; echo "exit=$? (tier thorough, restricted to the harnesses the native sweep flagged: $hits)" >> $out/check_${pid}_thorough.txt)
-    if grep -q "^VIOLATION" $out/check_${pid}_thorough.txt; then cp $out/check_${pid}_thorough.txt $out/check_$pid.txt; fi
-  fi
-fi
-if [ -z "$hits" ] || { ! grep -q "^VIOLATION" $out/check_$pid.txt && grep -q "no obligation was generated" $out/check_$pid.txt; }; then
-  (cd $V && python3 check.py $pid --tier $tier > $out/check_$pid.txt 2>$out/check_$pid.err; echo "exit=$? (tier $tier, full check; native sweep flagged nothing the restricted runs could decide)" >> $out/check_$pid.txt)
-fi
-.if [ -n "$hits" ]; then
-  (cd $V && VERIF_ONLY="$hits" python3 check.py $pid --tier $tier > $out/check_$pid.txt 2>$out/check_$pid.err; echo "exit=$? (tier $tier, restricted to the harnesses the native sweep flagged: $hits)" >> $out/check_$pid.txt)
-  if ! grep -q "^VIOLATION" $out/check_$pid.txt && [ "$tier" = quick ]; then
-    # the flagged harnesses may belong to the thorough tier only (larger bounds, slow ones)
-    (cd $V && VERIF_ONLY="$hits" python3 check.py $pid --tier thorough > $out/check_${pid}_thorough.txt 2>$out/check_${pid}_thorough.err; echo "exit=$? (tier thorough, restricted to the harnesses the native sweep flagged: $hits)" >> $out/check_${pid}_thorough.txt)
-    if grep -q "^VIOLATION" $out/check_${pid}_thorough.txt; then cp $out/check_${pid}_thorough.txt $out/check_$pid.txt; fi
-  fi
-fi
-if [ -z "$hits" ] || { ! grep -q "^VIOLATION" $out/check_$pid.txt && grep -q "no obligation was generated" $out/check_$pid.txt; }; then
-  (cd $V && python3 check.py $pid --tier $tier > $out/check_$pid.txt 2>$out/check_$pid.err; echo "exit=$? (tier $tier, full check; native sweep flagged nothing the restricted runs could decide)" >> $out/check_$pid.txt)
-fi
-jif [ -n "$hits" ]; then
-  (cd $V && VERIF_ONLY="$hits" python3 check.py $pid --tier $tier > $out/check_$pid.txt 2>$out/check_$pid.err; echo "exit=$? (tier $tier, restricted to the harnesses the native sweep flagged: $hits)" >> $out/check_$pid.txt)
-  if ! grep -q "^VIOLATION" $out/check_$pid.txt && [ "$tier" = quick ]; then
-    # the flagged harnesses may belong to the thorough tier only (larger bounds, slow ones)
-    (cd $V && VERIF_ONLY="$hits" python3 check.py $pid --tier thorough > $out/check_${pid}_thorough.txt 2>$out/check_${pid}_thorough.err; echo "exit=$? (tier thorough, restricted to the harnesses the native sweep flagged: $hits)" >> $out/check_${pid}_thorough.txt)
-    if grep -q "^VIOLATION" $out/check_${pid}_thorough.txt; then cp $out/check_${pid}_thorough.txt $out/check_$pid.txt; fi
-  fi
-fi
-if [ -z "$hits" ] || { ! grep -q "^VIOLATION" $out/check_$pid.txt && grep -q "no obligation was generated" $out/check_$pid.txt; }; then
-  (cd $V && python3 check.py $pid --tier $tier > $out/check_$pid.txt 2>$out/check_$pid.err; echo "exit=$? (tier $tier, full check; native sweep flagged nothing the restricted runs could decide)" >> $out/check_$pid.txt)
-fi
-sif [ -n "$hits" ]; then
-  (cd $V && VERIF_ONLY="$hits" python3 check.py $pid --tier $tier > $out/check_$pid.txt 2>$out/check_$pid.err; echo "exit=$? (tier $tier, restricted to the harnesses the native sweep flagged: $hits)" >> $out/check_$pid.txt)
-  if ! grep -q "^VIOLATION" $out/check_$pid.txt && [ "$tier" = quick ]; then
-    # the flagged harnesses may belong to the thorough tier only (larger bounds, slow ones)
-    (cd $V && VERIF_ONLY="$hits" python3 check.py $pid --tier thorough > $out/check_${pid}_thorough.txt 2>$out/check_${pid}_thorough.err; echo "exit=$? (tier thorough, restricted to the harnesses the native sweep flagged: $hits)" >> $out/check_${pid}_thorough.txt)
-    if grep -q "^VIOLATION" $out/check_${pid}_thorough.txt; then cp $out/check_${pid}_thorough.txt $out/check_$pid.txt; fi
-  fi
-fi
-if [ -z "$hits" ] || { ! grep -q "^VIOLATION" $out/check_$pid.txt && grep -q "no obligation was generated" $out/check_$pid.txt; }; then
-  (cd $V && python3 check.py $pid --tier $tier > $out/check_$pid.txt 2>$out/check_$pid.err; echo "exit=$? (tier $tier, full check; native sweep flagged nothing the restricted runs could decide)" >> $out/check_$pid.txt)
-fi
-oif [ -n "$hits" ]; then
-  (cd $V && VERIF_ONLY="$hits" python3 check.py $pid --tier $tier > $out/check_$pid.txt 2>$out/check_$pid.err; echo "exit=$? (tier $tier, restricted to the harnesses the native sweep flagged: $hits)" >> $out/check_$pid.txt)
-  if ! grep -q "^VIOLATION" $out/check_$pid.txt && [ "$tier" = quick ]; then
-    # the flagged harnesses may belong to the thorough tier only (larger bounds, slow ones)
-    (cd $V && VERIF_ONLY="$hits" python3 check.py $pid --tier thorough > $out/check_${pid}_thorough.txt 2>$out/check_${pid}_thorough.err; echo "exit=$? (tier thorough, restricted to the harnesses the native sweep flagged: $hits)" >> $out/check_${pid}_thorough.txt)
-    if grep -q "^VIOLATION" $out/check_${pid}_thorough.txt; then cp $out/check_${pid}_thorough.txt $out/check_$pid.txt; fi
-  fi
-fi
-if [ -z "$hits" ] || { ! grep -q "^VIOLATION" $out/check_$pid.txt && grep -q "no obligation was generated" $out/check_$pid.txt; }; then
-  (cd $V && python3 check.py $pid --tier $tier > $out/check_$pid.txt 2>$out/check_$pid.err; echo "exit=$? (tier $tier, full check; native sweep flagged nothing the restricted runs could decide)" >> $out/check_$pid.txt)
-fi
-nif [ -n "$hits" ]; then
-  (cd $V && VERIF_ONLY="$hits" python3 check.py $pid --tier $tier > $out/check_$pid.txt 2>$out/check_$pid.err; echo "exit=$? (tier $tier, restricted to the harnesses the native sweep flagged: $hits)" >> $out/check_$pid.txt)
-  if ! grep -q "^VIOLATION" $out/check_$pid.txt && [ "$tier" = quick ]; then
-    # the flagged harnesses may belong to the thorough tier only (larger bounds, slow ones)
-    (cd $V && VERIF_ONLY="$hits" python3 check.py $pid --tier thorough > $out/check_${pid}_thorough.txt 2>$out/check_${pid}_thorough.err; echo "exit=$? (tier thorough, restricted to the harnesses the native sweep flagged: $hits)" >> $out/check_${pid}_thorough.txt)
-    if grep -q "^VIOLATION" $out/check_${pid}_thorough.txt; then cp $out/check_${pid}_thorough.txt $out/check_$pid.txt; fi
-  fi
-fi
-if [ -z "$hits" ] || { ! grep -q "^VIOLATION" $out/check_$pid.txt && grep -q "no obligation was generated" $out/check_$pid.txt; }; then
-  (cd $V && python3 check.py $pid --tier $tier > $out/check_$pid.txt 2>$out/check_$pid.err; echo "exit=$? (tier $tier, full check; native sweep flagged nothing the restricted runs could decide)" >> $out/check_$pid.txt)
-fi
- if [ -n "$hits" ]; then
-  (cd $V && VERIF_ONLY="$hits" python3 check.py $pid --tier $tier > $out/check_$pid.txt 2>$out/check_$pid.err; echo "exit=$? (tier $tier, restricted to the harnesses the native sweep flagged: $hits)" >> $out/check_$pid.txt)
-  if ! grep -q "^VIOLATION" $out/check_$pid.txt && [ "$tier" = quick ]; then
-    # the flagged harnesses may belong to the thorough tier only (larger bounds, slow ones)
-    (cd $V && VERIF_ONLY="$hits" python3 check.py $pid --tier thorough > $out/check_${pid}_thorough.txt 2>$out/check_${pid}_thorough.err; echo "exit=$? (tier thorough, restricted to the harnesses the native sweep flagged: $hits)" >> $out/check_${pid}_thorough.txt)
-    if grep -q "^VIOLATION" $out/check_${pid}_thorough.txt; then cp $out/check_${pid}_thorough.txt $out/check_$pid.txt; fi
-  fi
-fi
-if [ -z "$hits" ] || { ! grep -q "^VIOLATION" $out/check_$pid.txt && grep -q "no obligation was generated" $out/check_$pid.txt; }; then
-  (cd $V && python3 check.py $pid --tier $tier > $out/check_$pid.txt 2>$out/check_$pid.err; echo "exit=$? (tier $tier, full check; native sweep flagged nothing the restricted runs could decide)" >> $out/check_$pid.txt)
-fi
-]if [ -n "$hits" ]; then
-  (cd $V && VERIF_ONLY="$hits" python3 check.py $pid --tier $tier > $out/check_$pid.txt 2>$out/check_$pid.err; echo "exit=$? (tier $tier, restricted to the harnesses the native sweep flagged: $hits)" >> $out/check_$pid.txt)
-  if ! grep -q "^VIOLATION" $out/check_$pid.txt && [ "$tier" = quick ]; then
-    # the flagged harnesses may belong to the thorough tier only (larger bounds, slow ones)
-    (cd $V && VERIF_ONLY="$hits" python3 check.py $pid --tier thorough > $out/check_${pid}_thorough.txt 2>$out/check_${pid}_thorough.err; echo "exit=$? (tier thorough, restricted to the harnesses the native sweep flagged: $hits)" >> $out/check_${pid}_thorough.txt)
-    if grep -q "^VIOLATION" $out/check_${pid}_thorough.txt; then cp $out/check_${pid}_thorough.txt $out/check_$pid.txt; fi
-  fi
-fi
-if [ -z "$hits" ] || { ! grep -q "^VIOLATION" $out/check_$pid.txt && grep -q "no obligation was generated" $out/check_$pid.txt; }; then
-  (cd $V && python3 check.py $pid --tier $tier > $out/check_$pid.txt 2>$out/check_$pid.err; echo "exit=$? (tier $tier, full check; native sweep flagged nothing the restricted runs could decide)" >> $out/check_$pid.txt)
-fi
-;if [ -n "$hits" ]; then
-  (cd $V && VERIF_ONLY="$hits" python3 check.py $pid --tier $tier > $out/check_$pid.txt 2>$out/check_$pid.err; echo "exit=$? (tier $tier, restricted to the harnesses the native sweep flagged: $hits)" >> $out/check_$pid.txt)
-  if ! grep -q "^VIOLATION" $out/check_$pid.txt && [ "$tier" = quick ]; then
-    # the flagged harnesses may belong to the thorough tier only (larger bounds, slow ones)
-    (cd $V && VERIF_ONLY="$hits" python3 check.py $pid --tier thorough > $out/check_${pid}_thorough.txt 2>$out/check_${pid}_thorough.err; echo "exit=$? (tier thorough, restricted to the harnesses the native sweep flagged: $hits)" >> $out/check_${pid}_thorough.txt)
-    if grep -q "^VIOLATION" $out/check_${pid}_thorough.txt; then cp $out/check_${pid}_thorough.txt $out/check_$pid.txt; fi
-  fi
-fi
-if [ -z "$hits" ] || { ! grep -q "^VIOLATION" $out/check_$pid.txt && grep -q "no obligation was generated" $out/check_$pid.txt; }; then
-  (cd $V && python3 check.py $pid --tier $tier > $out/check_$pid.txt 2>$out/check_$pid.err; echo "exit=$? (tier $tier, full check; native sweep flagged nothing the restricted runs could decide)" >> $out/check_$pid.txt)
-fi
- if [ -n "$hits" ]; then
-  (cd $V && VERIF_ONLY="$hits" python3 check.py $pid --tier $tier > $out/check_$pid.txt 2>$out/check_$pid.err; echo "exit=$? (tier $tier, restricted to the harnesses the native sweep flagged: $hits)" >> $out/check_$pid.txt)
-  if ! grep -q "^VIOLATION" $out/check_$pid.txt && [ "$tier" = quick ]; then
-    # the flagged harnesses may belong to the thorough tier only (larger bounds, slow ones)
-    (cd $V && VERIF_ONLY="$hits" python3 check.py $pid --tier thorough > $out/check_${pid}_thorough.txt 2>$out/check_${pid}_thorough.err; echo "exit=$? (tier thorough, restricted to the harnesses the native sweep flagged: $hits)" >> $out/check_${pid}_thorough.txt)
-    if grep -q "^VIOLATION" $out/check_${pid}_thorough.txt; then cp $out/check_${pid}_thorough.txt $out/check_$pid.txt; fi
-  fi
-fi
-if [ -z "$hits" ] || { ! grep -q "^VIOLATION" $out/check_$pid.txt && grep -q "no obligation was generated" $out/check_$pid.txt; }; then
-  (cd $V && python3 check.py $pid --tier $tier > $out/check_$pid.txt 2>$out/check_$pid.err; echo "exit=$? (tier $tier, full check; native sweep flagged nothing the restricted runs could decide)" >> $out/check_$pid.txt)
-fi
-tif [ -n "$hits" ]; then
-  (cd $V && VERIF_ONLY="$hits" python3 check.py $pid --tier $tier > $out/check_$pid.txt 2>$out/check_$pid.err; echo "exit=$? (tier $tier, restricted to the harnesses the native sweep flagged: $hits)" >> $out/check_$pid.txt)
-  if ! grep -q "^VIOLATION" $out/check_$pid.txt && [ "$tier" = quick ]; then
-    # the flagged harnesses may belong to the thorough tier only (larger bounds, slow ones)
-    (cd $V && VERIF_ONLY="$hits" python3 check.py $pid --tier thorough > $out/check_${pid}_thorough.txt 2>$out/check_${pid}_thorough.err; echo "exit=$? (tier thorough, restricted to the harnesses the native sweep flagged: $hits)" >> $out/check_${pid}_thorough.txt)
-    if grep -q "^VIOLATION" $out/check_${pid}_thorough.txt; then cp $out/check_${pid}_thorough.txt $out/check_$pid.txt; fi
-  fi
-fi
-if [ -z "$hits" ] || { ! grep -q "^VIOLATION" $out/check_$pid.txt && grep -q "no obligation was generated" $out/check_$pid.txt; }; then
-  (cd $V && python3 check.py $pid --tier $tier > $out/check_$pid.txt 2>$out/check_$pid.err; echo "exit=$? (tier $tier, full check; native sweep flagged nothing the restricted runs could decide)" >> $out/check_$pid.txt)
-fi
-hif [ -n "$hits" ]; then
-  (cd $V && VERIF_ONLY="$hits" python3 check.py $pid --tier $tier > $out/check_$pid.txt 2>$out/check_$pid.err; echo "exit=$? (tier $tier, restricted to the harnesses the native sweep flagged: $hits)" >> $out/check_$pid.txt)
-  if ! grep -q "^VIOLATION" $out/check_$pid.txt && [ "$tier" = quick ]; then
-    # the flagged harnesses may belong to the thorough tier only (larger bounds, slow ones)
-    (cd $V && VERIF_ONLY="$hits" python3 check.py $pid --tier thorough > $out/check_${pid}_thorough.txt 2>$out/check_${pid}_thorough.err; echo "exit=$? (tier thorough, restricted to the harnesses the native sweep flagged: $hits)" >> $out/check_${pid}_thorough.txt)
-    if grep -q "^VIOLATION" $out/check_${pid}_thorough.txt; then cp $out/check_${pid}_thorough.txt $out/check_$pid.txt; fi
-  fi
-fi
-if [ -z "$hits" ] || { ! grep -q "^VIOLATION" $out/check_$pid.txt && grep -q "no obligation was generated" $out/check_$pid.txt; }; then
-  (cd $V && python3 check.py $pid --tier $tier > $out/check_$pid.txt 2>$out/check_$pid.err; echo "exit=$? (tier $tier, full check; native sweep flagged nothing the restricted runs could decide)" >> $out/check_$pid.txt)
-fi
-eif [ -n "$hits" ]; then
-  (cd $V && VERIF_ONLY="$hits" python3 check.py $pid --tier $tier > $out/check_$pid.txt 2>$out/check_$pid.err; echo "exit=$? (tier $tier, restricted to the harnesses the native sweep flagged: $hits)" >> $out/check_$pid.txt)
-  if ! grep -q "^VIOLATION" $out/check_$pid.txt && [ "$tier" = quick ]; then
-    # the flagged harnesses may belong to the thorough tier only (larger bounds, slow ones)
-    (cd $V && VERIF_ONLY="$hits" python3 check.py $pid --tier thorough > $out/check_${pid}_thorough.txt 2>$out/check_${pid}_thorough.err; echo "exit=$? (tier thorough, restricted to the harnesses the native sweep flagged: $hits)" >> $out/check_${pid}_thorough.txt)
-    if grep -q "^VIOLATION" $out/check_${pid}_thorough.txt; then cp $out/check_${pid}_thorough.txt $out/check_$pid.txt; fi
-  fi
-fi
-if [ -z "$hits" ] || { ! grep -q "^VIOLATION" $out/check_$pid.txt && grep -q "no obligation was generated" $out/check_$pid.txt; }; then
-  (cd $V && python3 check.py $pid --tier $tier > $out/check_$pid.txt 2>$out/check_$pid.err; echo "exit=$? (tier $tier, full check; native sweep flagged nothing the restricted runs could decide)" >> $out/check_$pid.txt)
-fi
-nif [ -n "$hits" ]; then
-  (cd $V && VERIF_ONLY="$hits" python3 check.py $pid --tier $tier > $out/check_$pid.txt 2>$out/check_$pid.err; echo "exit=$? (tier $tier, restricted to the harnesses the native sweep flagged: $hits)" >> $out/check_$pid.txt)
-  if ! grep -q "^VIOLATION" $out/check_$pid.txt && [ "$tier" = quick ]; then
-    # the flagged harnesses may belong to the thorough tier only (larger bounds, slow ones)
-    (cd $V && VERIF_ONLY="$hits" python3 check.py $pid --tier thorough > $out/check_${pid}_thorough.txt 2>$out/check_${pid}_thorough.err; echo "exit=$? (tier thorough, restricted to the harnesses the native sweep flagged: $hits)" >> $out/check_${pid}_thorough.txt)
-    if grep -q "^VIOLATION" $out/check_${pid}_thorough.txt; then cp $out/check_${pid}_thorough.txt $out/check_$pid.txt; fi
-  fi
-fi
-if [ -z "$hits" ] || { ! grep -q "^VIOLATION" $out/check_$pid.txt && grep -q "no obligation was generated" $out/check_$pid.txt; }; then
-  (cd $V && python3 check.py $pid --tier $tier > $out/check_$pid.txt 2>$out/check_$pid.err; echo "exit=$? (tier $tier, full check; native sweep flagged nothing the restricted runs could decide)" >> $out/check_$pid.txt)
-fi
-
-if [ -n "$hits" ]; then
-  (cd $V && VERIF_ONLY="$hits" python3 check.py $pid --tier $tier > $out/check_$pid.txt 2>$out/check_$pid.err; echo "exit=$? (tier $tier, restricted to the harnesses the native sweep flagged: $hits)" >> $out/check_$pid.txt)
-  if ! grep -q "^VIOLATION" $out/check_$pid.txt && [ "$tier" = quick ]; then
-    # the flagged harnesses may belong to the thorough tier only (larger bounds, slow ones)
-    (cd $V && VERIF_ONLY="$hits" python3 check.py $pid --tier thorough > $out/check_${pid}_thorough.txt 2>$out/check_${pid}_thorough.err; echo "exit=$? (tier thorough, restricted to the harnesses the native sweep flagged: $hits)" >> $out/check_${pid}_thorough.txt)
-    if grep -q "^VIOLATION" $out/check_${pid}_thorough.txt; then cp $out/check_${pid}_thorough.txt $out/check_$pid.txt; fi
-  fi
-fi
-if [ -z "$hits" ] || { ! grep -q "^VIOLATION" $out/check_$pid.txt && grep -q "no obligation was generated" $out/check_$pid.txt; }; then
-  (cd $V && python3 check.py $pid --tier $tier > $out/check_$pid.txt 2>$out/check_$pid.err; echo "exit=$? (tier $tier, full check; native sweep flagged nothing the restricted runs could decide)" >> $out/check_$pid.txt)
-fi
- if [ -n "$hits" ]; then
-  (cd $V && VERIF_ONLY="$hits" python3 check.py $pid --tier $tier > $out/check_$pid.txt 2>$out/check_$pid.err; echo "exit=$? (tier $tier, restricted to the harnesses the native sweep flagged: $hits)" >> $out/check_$pid.txt)
-  if ! grep -q "^VIOLATION" $out/check_$pid.txt && [ "$tier" = quick ]; then
-    # the flagged harnesses may belong to the thorough tier only (larger bounds, slow ones)
-    (cd $V && VERIF_ONLY="$hits" python3 check.py $pid --tier thorough > $out/check_${pid}_thorough.txt 2>$out/check_${pid}_thorough.err; echo "exit=$? (tier thorough, restricted to the harnesses the native sweep flagged: $hits)" >> $out/check_${pid}_thorough.txt)
-    if grep -q "^VIOLATION" $out/check_${pid}_thorough.txt; then cp $out/check_${pid}_thorough.txt $out/check_$pid.txt; fi
-  fi
-fi
-if [ -z "$hits" ] || { ! grep -q "^VIOLATION" $out/check_$pid.txt && grep -q "no obligation was generated" $out/check_$pid.txt; }; then
-  (cd $V && python3 check.py $pid --tier $tier > $out/check_$pid.txt 2>$out/check_$pid.err; echo "exit=$? (tier $tier, full check; native sweep flagged nothing the restricted runs could decide)" >> $out/check_$pid.txt)
-fi
- if [ -n "$hits" ]; then
-  (cd $V && VERIF_ONLY="$hits" python3 check.py $pid --tier $tier > $out/check_$pid.txt 2>$out/check_$pid.err; echo "exit=$? (tier $tier, restricted to the harnesses the native sweep flagged: $hits)" >> $out/check_$pid.txt)
-  if ! grep -q "^VIOLATION" $out/check_$pid.txt && [ "$tier" = quick ]; then
-    # the flagged harnesses may belong to the thorough tier only (larger bounds, slow ones)
-    (cd $V && VERIF_ONLY="$hits" python3 check.py $pid --tier thorough > $out/check_${pid}_thorough.txt 2>$out/check_${pid}_thorough.err; echo "exit=$? (tier thorough, restricted to the harnesses the native sweep flagged: $hits)" >> $out/check_${pid}_thorough.txt)
-    if grep -q "^VIOLATION" $out/check_${pid}_thorough.txt; then cp $out/check_${pid}_thorough.txt $out/check_$pid.txt; fi
-  fi
-fi
-if [ -z "$hits" ] || { ! grep -q "^VIOLATION" $out/check_$pid.txt && grep -q "no obligation was generated" $out/check_$pid.txt; }; then
-  (cd $V && python3 check.py $pid --tier $tier > $out/check_$pid.txt 2>$out/check_$pid.err; echo "exit=$? (tier $tier, full check; native sweep flagged nothing the restricted runs could decide)" >> $out/check_$pid.txt)
-fi
-(if [ -n "$hits" ]; then
-  (cd $V && VERIF_ONLY="$hits" python3 check.py $pid --tier $tier > $out/check_$pid.txt 2>$out/check_$pid.err; echo "exit=$? (tier $tier, restricted to the harnesses the native sweep flagged: $hits)" >> $out/check_$pid.txt)
-  if ! grep -q "^VIOLATION" $out/check_$pid.txt && [ "$tier" = quick ]; then
-    # the flagged harnesses may belong to the thorough tier only (larger bounds, slow ones)
-    (cd $V && VERIF_ONLY="$hits" python3 check.py $pid --tier thorough > $out/check_${pid}_thorough.txt 2>$out/check_${pid}_thorough.err; echo "exit=$? (tier thorough, restricted to the harnesses the native sweep flagged: $hits)" >> $out/check_${pid}_thorough.txt)
-    if grep -q "^VIOLATION" $out/check_${pid}_thorough.txt; then cp $out/check_${pid}_thorough.txt $out/check_$pid.txt; fi
-  fi
-fi
-if [ -z "$hits" ] || { ! grep -q "^VIOLATION" $out/check_$pid.txt && grep -q "no obligation was generated" $out/check_$pid.txt; }; then
-  (cd $V && python3 check.py $pid --tier $tier > $out/check_$pid.txt 2>$out/check_$pid.err; echo "exit=$? (tier $tier, full check; native sweep flagged nothing the restricted runs could decide)" >> $out/check_$pid.txt)
-fi
-cif [ -n "$hits" ]; then
-  (cd $V && VERIF_ONLY="$hits" python3 check.py $pid --tier $tier > $out/check_$pid.txt 2>$out/check_$pid.err; echo "exit=$? (tier $tier, restricted to the harnesses the native sweep flagged: $hits)" >> $out/check_$pid.txt)
-  if ! grep -q "^VIOLATION" $out/check_$pid.txt && [ "$tier" = quick ]; then
-    # the flagged harnesses may belong to the thorough tier only (larger bounds, slow ones)
-    (cd $V && VERIF_ONLY="$hits" python3 check.py $pid --tier thorough > $out/check_${pid}_thorough.txt 2>$out/check_${pid}_thorough.err; echo "exit=$? (tier thorough, restricted to the harnesses the native sweep flagged: $hits)" >> $out/check_${pid}_thorough.txt)
-    if grep -q "^VIOLATION" $out/check_${pid}_thorough.txt; then cp $out/check_${pid}_thorough.txt $out/check_$pid.txt; fi
-  fi
-fi
-if [ -z "$hits" ] || { ! grep -q "^VIOLATION" $out/check_$pid.txt && grep -q "no obligation was generated" $out/check_$pid.txt; }; then
-  (cd $V && python3 check.py $pid --tier $tier > $out/check_$pid.txt 2>$out/check_$pid.err; echo "exit=$? (tier $tier, full check; native sweep flagged nothing the restricted runs could decide)" >> $out/check_$pid.txt)
-fi
-dif [ -n "$hits" ]; then
-  (cd $V && VERIF_ONLY="$hits" python3 check.py $pid --tier $tier > $out/check_$pid.txt 2>$out/check_$pid.err; echo "exit=$? (tier $tier, restricted to the harnesses the native sweep flagged: $hits)" >> $out/check_$pid.txt)
-  if ! grep -q "^VIOLATION" $out/check_$pid.txt && [ "$tier" = quick ]; then
-    # the flagged harnesses may belong to the thorough tier only (larger bounds, slow ones)
-    (cd $V && VERIF_ONLY="$hits" python3 check.py $pid --tier thorough > $out/check_${pid}_thorough.txt 2>$out/check_${pid}_thorough.err; echo "exit=$? (tier thorough, restricted to the harnesses the native sweep flagged: $hits)" >> $out/check_${pid}_thorough.txt)
-    if grep -q "^VIOLATION" $out/check_${pid}_thorough.txt; then cp $out/check_${pid}_thorough.txt $out/check_$pid.txt; fi
-  fi
-fi
-if [ -z "$hits" ] || { ! grep -q "^VIOLATION" $out/check_$pid.txt && grep -q "no obligation was generated" $out/check_$pid.txt; }; then
-  (cd $V && python3 check.py $pid --tier $tier > $out/check_$pid.txt 2>$out/check_$pid.err; echo "exit=$? (tier $tier, full check; native sweep flagged nothing the restricted runs could decide)" >> $out/check_$pid.txt)
-fi
- if [ -n "$hits" ]; then
-  (cd $V && VERIF_ONLY="$hits" python3 check.py $pid --tier $tier > $out/check_$pid.txt 2>$out/check_$pid.err; echo "exit=$? (tier $tier, restricted to the harnesses the native sweep flagged: $hits)" >> $out/check_$pid.txt)
-  if ! grep -q "^VIOLATION" $out/check_$pid.txt && [ "$tier" = quick ]; then
-    # the flagged harnesses may belong to the thorough tier only (larger bounds, slow ones)
-    (cd $V && VERIF_ONLY="$hits" python3 check.py $pid --tier thorough > $out/check_${pid}_thorough.txt 2>$out/check_${pid}_thorough.err; echo "exit=$? (tier thorough, restricted to the harnesses the native sweep flagged: $hits)" >> $out/check_${pid}_thorough.txt)
-    if grep -q "^VIOLATION" $out/check_${pid}_thorough.txt; then cp $out/check_${pid}_thorough.txt $out/check_$pid.txt; fi
-  fi
-fi
-if [ -z "$hits" ] || { ! grep -q "^VIOLATION" $out/check_$pid.txt && grep -q "no obligation was generated" $out/check_$pid.txt; }; then
-  (cd $V && python3 check.py $pid --tier $tier > $out/check_$pid.txt 2>$out/check_$pid.err; echo "exit=$? (tier $tier, full check; native sweep flagged nothing the restricted runs could decide)" >> $out/check_$pid.txt)
-fi
-$if [ -n "$hits" ]; then
-  (cd $V && VERIF_ONLY="$hits" python3 check.py $pid --tier $tier > $out/check_$pid.txt 2>$out/check_$pid.err; echo "exit=$? (tier $tier, restricted to the harnesses the native sweep flagged: $hits)" >> $out/check_$pid.txt)
-  if ! grep -q "^VIOLATION" $out/check_$pid.txt && [ "$tier" = quick ]; then
-    # the flagged harnesses may belong to the thorough tier only (larger bounds, slow ones)
-    (cd $V && VERIF_ONLY="$hits" python3 check.py $pid --tier thorough > $out/check_${pid}_thorough.txt 2>$out/check_${pid}_thorough.err; echo "exit=$? (tier thorough, restricted to the harnesses the native sweep flagged: $hits)" >> $out/check_${pid}_thorough.txt)
-    if grep -q "^VIOLATION" $out/check_${pid}_thorough.txt; then cp $out/check_${pid}_thorough.txt $out/check_$pid.txt; fi
-  fi
-fi
-if [ -z "$hits" ] || { ! grep -q "^VIOLATION" $out/check_$pid.txt && grep -q "no obligation was generated" $out/check_$pid.txt; }; then
-  (cd $V && python3 check.py $pid --tier $tier > $out/check_$pid.txt 2>$out/check_$pid.err; echo "exit=$? (tier $tier, full check; native sweep flagged nothing the restricted runs could decide)" >> $out/check_$pid.txt)
-fi
-Vif [ -n "$hits" ]; then
-  (cd $V && VERIF_ONLY="$hits" python3 check.py $pid --tier $tier > $out/check_$pid.txt 2>$out/check_$pid.err; echo "exit=$? (tier $tier, restricted to the harnesses the native sweep flagged: $hits)" >> $out/check_$pid.txt)
-  if ! grep -q "^VIOLATION" $out/check_$pid.txt && [ "$tier" = quick ]; then
-    # the flagged harnesses may belong to the thorough tier only (larger bounds, slow ones)
-    (cd $V && VERIF_ONLY="$hits" python3 check.py $pid --tier thorough > $out/check_${pid}_thorough.txt 2>$out/check_${pid}_thorough.err; echo "exit=$? (tier thorough, restricted to the harnesses the native sweep flagged: $hits)" >> $out/check_${pid}_thorough.txt)
-    if grep -q "^VIOLATION" $out/check_${pid}_thorough.txt; then cp $out/check_${pid}_thorough.txt $out/check_$pid.txt; fi
-  fi
-fi
-if [ -z "$hits" ] || { ! grep -q "^VIOLATION" $out/check_$pid.txt && grep -q "no obligation was generated" $out/check_$pid.txt; }; then
-  (cd $V && python3 check.py $pid --tier $tier > $out/check_$pid.txt 2>$out/check_$pid.err; echo "exit=$? (tier $tier, full check; native sweep flagged nothing the restricted runs could decide)" >> $out/check_$pid.txt)
-fi
- if [ -n "$hits" ]; then
-  (cd $V && VERIF_ONLY="$hits" python3 check.py $pid --tier $tier > $out/check_$pid.txt 2>$out/check_$pid.err; echo "exit=$? (tier $tier, restricted to the harnesses the native sweep flagged: $hits)" >> $out/check_$pid.txt)
-  if ! grep -q "^VIOLATION" $out/check_$pid.txt && [ "$tier" = quick ]; then
-    # the flagged harnesses may belong to the thorough tier only (larger bounds, slow ones)
-    (cd $V && VERIF_ONLY="$hits" python3 check.py $pid --tier thorough > $out/check_${pid}_thorough.txt 2>$out/check_${pid}_thorough.err; echo "exit=$? (tier thorough, restricted to the harnesses the native sweep flagged: $hits)" >> $out/check_${pid}_thorough.txt)
-    if grep -q "^VIOLATION" $out/check_${pid}_thorough.txt; then cp $out/check_${pid}_thorough.txt $out/check_$pid.txt; fi
-  fi
-fi
-if [ -z "$hits" ] || { ! grep -q "^VIOLATION" $out/check_$pid.txt && grep -q "no obligation was generated" $out/check_$pid.txt; }; then
-  (cd $V && python3 check.py $pid --tier $tier > $out/check_$pid.txt 2>$out/check_$pid.err; echo "exit=$? (tier $tier, full check; native sweep flagged nothing the restricted runs could decide)" >> $out/check_$pid.txt)
-fi
-&if [ -n "$hits" ]; then
-  (cd $V && VERIF_ONLY="$hits" python3 check.py $pid --tier $tier > $out/check_$pid.txt 2>$out/check_$pid.err; echo "exit=$? (tier $tier, restricted to the harnesses the native sweep flagged: $hits)" >> $out/check_$pid.txt)
-  if ! grep -q "^VIOLATION" $out/check_$pid.txt && [ "$tier" = quick ]; then
-    # the flagged harnesses may belong to the thorough tier only (larger bounds, slow ones)
-    (cd $V && VERIF_ONLY="$hits" python3 check.py $pid --tier thorough > $out/check_${pid}_thorough.txt 2>$out/check_${pid}_thorough.err; echo "exit=$? (tier thorough, restricted to the harnesses the native sweep flagged: $hits)" >> $out/check_${pid}_thorough.txt)
-    if grep -q "^VIOLATION" $out/check_${pid}_thorough.txt; then cp $out/check_${pid}_thorough.txt $out/check_$pid.txt; fi
-  fi
-fi
-if [ -z "$hits" ] || { ! grep -q "^VIOLATION" $out/check_$pid.txt && grep -q "no obligation was generated" $out/check_$pid.txt; }; then
-  (cd $V && python3 check.py $pid --tier $tier > $out/check_$pid.txt 2>$out/check_$pid.err; echo "exit=$? (tier $tier, full check; native sweep flagged nothing the restricted runs could decide)" >> $out/check_$pid.txt)
-fi
-&if [ -n "$hits" ]; then
-  (cd $V && VERIF_ONLY="$hits" python3 check.py $pid --tier $tier > $out/check_$pid.txt 2>$out/check_$pid.err; echo "exit=$? (tier $tier, restricted to the harnesses the native sweep flagged: $hits)" >> $out/check_$pid.txt)
-  if ! grep -q "^VIOLATION" $out/check_$pid.txt && [ "$tier" = quick ]; then
-    # the flagged harnesses may belong to the thorough tier only (larger bounds, slow ones)
-    (cd $V && VERIF_ONLY="$hits" python3 check.py $pid --tier thorough > $out/check_${pid}_thorough.txt 2>$out/check_${pid}_thorough.err; echo "exit=$? (tier thorough, restricted to the harnesses the native sweep flagged: $hits)" >> $out/check_${pid}_thorough.txt)
-    if grep -q "^VIOLATION" $out/check_${pid}_thorough.txt; then cp $out/check_${pid}_thorough.txt $out/check_$pid.txt; fi
-  fi
-fi
-if [ -z "$hits" ] || { ! grep -q "^VIOLATION" $out/check_$pid.txt && grep -q "no obligation was generated" $out/check_$pid.txt; }; then
-  (cd $V && python3 check.py $pid --tier $tier > $out/check_$pid.txt 2>$out/check_$pid.err; echo "exit=$? (tier $tier, full check; native sweep flagged nothing the restricted runs could decide)" >> $out/check_$pid.txt)
-fi
- if [ -n "$hits" ]; then
-  (cd $V && VERIF_ONLY="$hits" python3 check.py $pid --tier $tier > $out/check_$pid.txt 2>$out/check_$pid.err; echo "exit=$? (tier $tier, restricted to the harnesses the native sweep flagged: $hits)" >> $out/check_$pid.txt)
-  if ! grep -q "^VIOLATION" $out/check_$pid.txt && [ "$tier" = quick ]; then
-    # the flagged harnesses may belong to the thorough tier only (larger bounds, slow ones)
-    (cd $V && VERIF_ONLY="$hits" python3 check.py $pid --tier thorough > $out/check_${pid}_thorough.txt 2>$out/check_${pid}_thorough.err; echo "exit=$? (tier thorough, restricted to the harnesses the native sweep flagged: $hits)" >> $out/check_${pid}_thorough.txt)
-    if grep -q "^VIOLATION" $out/check_${pid}_thorough.txt; then cp $out/check_${pid}_thorough.txt $out/check_$pid.txt; fi
-  fi
-fi
-if [ -z "$hits" ] || { ! grep -q "^VIOLATION" $out/check_$pid.txt && grep -q "no obligation was generated" $out/check_$pid.txt; }; then
-  (cd $V && python3 check.py $pid --tier $tier > $out/check_$pid.txt 2>$out/check_$pid.err; echo "exit=$? (tier $tier, full check; native sweep flagged nothing the restricted runs could decide)" >> $out/check_$pid.txt)
-fi
-Vif [ -n "$hits" ]; then
-  (cd $V && VERIF_ONLY="$hits" python3 check.py $pid --tier $tier > $out/check_$pid.txt 2>$out/check_$pid.err; echo "exit=$? (tier $tier, restricted to the harnesses the native sweep flagged: $hits)" >> $out/check_$pid.txt)
-  if ! grep -q "^VIOLATION" $out/check_$pid.txt && [ "$tier" = quick ]; then
-    # the flagged harnesses may belong to the thorough tier only (larger bounds, slow ones)
-    (cd $V && VERIF_ONLY="$hits" python3 check.py $pid --tier thorough > $out/check_${pid}_thorough.txt 2>$out/check_${pid}_thorough.err; echo "exit=$? (tier thorough, restricted to the harnesses the native sweep flagged: $hits)" >> $out/check_${pid}_thorough.txt)
-    if grep -q "^VIOLATION" $out/check_${pid}_thorough.txt; then cp $out/check_${pid}_thorough.txt $out/check_$pid.txt; fi
-  fi
-fi
-if [ -z "$hits" ] || { ! grep -q "^VIOLATION" $out/check_$pid.txt && grep -q "no obligation was generated" $out/check_$pid.txt; }; then
-  (cd $V && python3 check.py $pid --tier $tier > $out/check_$pid.txt 2>$out/check_$pid.err; echo "exit=$? (tier $tier, full check; native sweep flagged nothing the restricted runs could decide)" >> $out/check_$pid.txt)
-fi
-Eif [ -n "$hits" ]; then
-  (cd $V && VERIF_ONLY="$hits" python3 check.py $pid --tier $tier > $out/check_$pid.txt 2>$out/check_$pid.err; echo "exit=$? (tier $tier, restricted to the harnesses the native sweep flagged: $hits)" >> $out/check_$pid.txt)
-  if ! grep -q "^VIOLATION" $out/check_$pid.txt && [ "$tier" = quick ]; then
-    # the flagged harnesses may belong to the thorough tier only (larger bounds, slow ones)
-    (cd $V && VERIF_ONLY="$hits" python3 check.py $pid --tier thorough > $out/check_${pid}_thorough.txt 2>$out/check_${pid}_thorough.err; echo "exit=$? (tier thorough, restricted to the harnesses the native sweep flagged: $hits)" >> $out/check_${pid}_thorough.txt)
-    if grep -q "^VIOLATION" $out/check_${pid}_thorough.txt; then cp $out/check_${pid}_thorough.txt $out/check_$pid.txt; fi
-  fi
-fi
-if [ -z "$hits" ] || { ! grep -q "^VIOLATION" $out/check_$pid.txt && grep -q "no obligation was generated" $out/check_$pid.txt; }; then
-  (cd $V && python3 check.py $pid --tier $tier > $out/check_$pid.txt 2>$out/check_$pid.err; echo "exit=$? (tier $tier, full check; native sweep flagged nothing the restricted runs could decide)" >> $out/check_$pid.txt)
-fi
-Rif [ -n "$hits" ]; then
-  (cd $V && VERIF_ONLY="$hits" python3 check.py $pid --tier $tier > $out/check_$pid.txt 2>$out/check_$pid.err; echo "exit=$? (tier $tier, restricted to the harnesses the native sweep flagged: $hits)" >> $out/check_$pid.txt)
-  if ! grep -q "^VIOLATION" $out/check_$pid.txt && [ "$tier" = quick ]; then
-    # the flagged harnesses may belong to the thorough tier only (larger bounds, slow ones)
-    (cd $V && VERIF_ONLY="$hits" python3 check.py $pid --tier thorough > $out/check_${pid}_thorough.txt 2>$out/check_${pid}_thorough.err; echo "exit=$? (tier thorough, restricted to the harnesses the native sweep flagged: $hits)" >> $out/check_${pid}_thorough.txt)
-    if grep -q "^VIOLATION" $out/check_${pid}_thorough.txt; then cp $out/check_${pid}_thorough.txt $out/check_$pid.txt; fi
-  fi
-fi
-if [ -z "$hits" ] || { ! grep -q "^VIOLATION" $out/check_$pid.txt && grep -q "no obligation was generated" $out/check_$pid.txt; }; then
-  (cd $V && python3 check.py $pid --tier $tier > $out/check_$pid.txt 2>$out/check_$pid.err; echo "exit=$? (tier $tier, full check; native sweep flagged nothing the restricted runs could decide)" >> $out/check_$pid.txt)
-fi
-Iif [ -n "$hits" ]; then
-  (cd $V && VERIF_ONLY="$hits" python3 check.py $pid --tier $tier > $out/check_$pid.txt 2>$out/check_$pid.err; echo "exit=$? (tier $tier, restricted to the harnesses the native sweep flagged: $hits)" >> $out/check_$pid.txt)
-  if ! grep -q "^VIOLATION" $out/check_$pid.txt && [ "$tier" = quick ]; then
-    # the flagged harnesses may belong to the thorough tier only (larger bounds, slow ones)
-    (cd $V && VERIF_ONLY="$hits" python3 check.py $pid --tier thorough > $out/check_${pid}_thorough.txt 2>$out/check_${pid}_thorough.err; echo "exit=$? (tier thorough, restricted to the harnesses the native sweep flagged: $hits)" >> $out/check_${pid}_thorough.txt)
-    if grep -q "^VIOLATION" $out/check_${pid}_thorough.txt; then cp $out/check_${pid}_thorough.txt $out/check_$pid.txt; fi
-  fi
-fi
-if [ -z "$hits" ] || { ! grep -q "^VIOLATION" $out/check_$pid.txt && grep -q "no obligation was generated" $out/check_$pid.txt; }; then
-  (cd $V && python3 check.py $pid --tier $tier > $out/check_$pid.txt 2>$out/check_$pid.err; echo "exit=$? (tier $tier, full check; native sweep flagged nothing the restricted runs could decide)" >> $out/check_$pid.txt)
-fi
-Fif [ -n "$hits" ]; then
-  (cd $V && VERIF_ONLY="$hits" python3 check.py $pid --tier $tier > $out/check_$pid.txt 2>$out/check_$pid.err; echo "exit=$? (tier $tier, restricted to the harnesses the native sweep flagged: $hits)" >> $out/check_$pid.txt)
-  if ! grep -q "^VIOLATION" $out/check_$pid.txt && [ "$tier" = quick ]; then
-    # the flagged harnesses may belong to the thorough tier only (larger bounds, slow ones)
-    (cd $V && VERIF_ONLY="$hits" python3 check.py $pid --tier thorough > $out/check_${pid}_thorough.txt 2>$out/check_${pid}_thorough.err; echo "exit=$? (tier thorough, restricted to the harnesses the native sweep flagged: $hits)" >> $out/check_${pid}_thorough.txt)
-    if grep -q "^VIOLATION" $out/check_${pid}_thorough.txt; then cp $out/check_${pid}_thorough.txt $out/check_$pid.txt; fi
-  fi
-fi
-if [ -z "$hits" ] || { ! grep -q "^VIOLATION" $out/check_$pid.txt && grep -q "no obligation was generated" $out/check_$pid.txt; }; then
-  (cd $V && python3 check.py $pid --tier $tier > $out/check_$pid.txt 2>$out/check_$pid.err; echo "exit=$? (tier $tier, full check; native sweep flagged nothing the restricted runs could decide)" >> $out/check_$pid.txt)
-fi
-_if [ -n "$hits" ]; then
-  (cd $V && VERIF_ONLY="$hits" python3 check.py $pid --tier $tier > $out/check_$pid.txt 2>$out/check_$pid.err; echo "exit=$? (tier $tier, restricted to the harnesses the native sweep flagged: $hits)" >> $out/check_$pid.txt)
-  if ! grep -q "^VIOLATION" $out/check_$pid.txt && [ "$tier" = quick ]; then
-    # the flagged harnesses may belong to the thorough tier only (larger bounds, slow ones)
-    (cd $V && VERIF_ONLY="$hits" python3 check.py $pid --tier thorough > $out/check_${pid}_thorough.txt 2>$out/check_${pid}_thorough.err; echo "exit=$? (tier thorough, restricted to the harnesses the native sweep flagged: $hits)" >> $out/check_${pid}_thorough.txt)
-    if grep -q "^VIOLATION" $out/check_${pid}_thorough.txt; then cp $out/check_${pid}_thorough.txt $out/check_$pid.txt; fi
-  fi
-fi
-if [ -z "$hits" ] || { ! grep -q "^VIOLATION" $out/check_$pid.txt && grep -q "no obligation was generated" $out/check_$pid.txt; }; then
-  (cd $V && python3 check.py $pid --tier $tier > $out/check_$pid.txt 2>$out/check_$pid.err; echo "exit=$? (tier $tier, full check; native sweep flagged nothing the restricted runs could decide)" >> $out/check_$pid.txt)
-fi
-Rif [ -n "$hits" ]; then
-  (cd $V && VERIF_ONLY="$hits" python3 check.py $pid --tier $tier > $out/check_$pid.txt 2>$out/check_$pid.err; echo "exit=$? (tier $tier, restricted to the harnesses the native sweep flagged: $hits)" >> $out/check_$pid.txt)
-  if ! grep -q "^VIOLATION" $out/check_$pid.txt && [ "$tier" = quick ]; then
-    # the flagged harnesses may belong to the thorough tier only (larger bounds, slow ones)
-    (cd $V && VERIF_ONLY="$hits" python3 check.py $pid --tier thorough > $out/check_${pid}_thorough.txt 2>$out/check_${pid}_thorough.err; echo "exit=$? (tier thorough, restricted to the harnesses the native sweep flagged: $hits)" >> $out/check_${pid}_thorough.txt)
-    if grep -q "^VIOLATION" $out/check_${pid}_thorough.txt; then cp $out/check_${pid}_thorough.txt $out/check_$pid.txt; fi
-  fi
-fi
-if [ -z "$hits" ] || { ! grep -q "^VIOLATION" $out/check_$pid.txt && grep -q "no obligation was generated" $out/check_$pid.txt; }; then
-  (cd $V && python3 check.py $pid --tier $tier > $out/check_$pid.txt 2>$out/check_$pid.err; echo "exit=$? (tier $tier, full check; native sweep flagged nothing the restricted runs could decide)" >> $out/check_$pid.txt)
-fi
-Eif [ -n "$hits" ]; then
-  (cd $V && VERIF_ONLY="$hits" python3 check.py $pid --tier $tier > $out/check_$pid.txt 2>$out/check_$pid.err; echo "exit=$? (tier $tier, restricted to the harnesses the native sweep flagged: $hits)" >> $out/check_$pid.txt)
-  if ! grep -q "^VIOLATION" $out/check_$pid.txt && [ "$tier" = quick ]; then
-    # the flagged harnesses may belong to the thorough tier only (larger bounds, slow ones)
-    (cd $V && VERIF_ONLY="$hits" python3 check.py $pid --tier thorough > $out/check_${pid}_thorough.txt 2>$out/check_${pid}_thorough.err; echo "exit=$? (tier thorough, restricted to the harnesses the native sweep flagged: $hits)" >> $out/check_${pid}_thorough.txt)
-    if grep -q "^VIOLATION" $out/check_${pid}_thorough.txt; then cp $out/check_${pid}_thorough.txt $out/check_$pid.txt; fi
-  fi
-fi
-if [ -z "$hits" ] || { ! grep -q "^VIOLATION" $out/check_$pid.txt && grep -q "no obligation was generated" $out/check_$pid.txt; }; then
-  (cd $V && python3 check.py $pid --tier $tier > $out/check_$pid.txt 2>$out/check_$pid.err; echo "exit=$? (tier $tier, full check; native sweep flagged nothing the restricted runs could decide)" >> $out/check_$pid.txt)
-fi
-Pif [ -n "$hits" ]; then
-  (cd $V && VERIF_ONLY="$hits" python3 check.py $pid --tier $tier > $out/check_$pid.txt 2>$out/check_$pid.err; echo "exit=$? (tier $tier, restricted to the harnesses the native sweep flagged: $hits)" >> $out/check_$pid.txt)
-  if ! grep -q "^VIOLATION" $out/check_$pid.txt && [ "$tier" = quick ]; then
-    # the flagged harnesses may belong to the thorough tier only (larger bounds, slow ones)
-    (cd $V && VERIF_ONLY="$hits" python3 check.py $pid --tier thorough > $out/check_${pid}_thorough.txt 2>$out/check_${pid}_thorough.err; echo "exit=$? (tier thorough, restricted to the harnesses the native sweep flagged: $hits)" >> $out/check_${pid}_thorough.txt)
-    if grep -q "^VIOLATION" $out/check_${pid}_thorough.txt; then cp $out/check_${pid}_thorough.txt $out/check_$pid.txt; fi
-  fi
-fi
-if [ -z "$hits" ] || { ! grep -q "^VIOLATION" $out/check_$pid.txt && grep -q "no obligation was generated" $out/check_$pid.txt; }; then
-  (cd $V && python3 check.py $pid --tier $tier > $out/check_$pid.txt 2>$out/check_$pid.err; echo "exit=$? (tier $tier, full check; native sweep flagged nothing the restricted runs could decide)" >> $out/check_$pid.txt)
-fi
-Oif [ -n "$hits" ]; then
-  (cd $V && VERIF_ONLY="$hits" python3 check.py $pid --tier $tier > $out/check_$pid.txt 2>$out/check_$pid.err; echo "exit=$? (tier $tier, restricted to the harnesses the native sweep flagged: $hits)" >> $out/check_$pid.txt)
-  if ! grep -q "^VIOLATION" $out/check_$pid.txt && [ "$tier" = quick ]; then
-    # the flagged harnesses may belong to the thorough tier only (larger bounds, slow ones)
-    (cd $V && VERIF_ONLY="$hits" python3 check.py $pid --tier thorough > $out/check_${pid}_thorough.txt 2>$out/check_${pid}_thorough.err; echo "exit=$? (tier thorough, restricted to the harnesses the native sweep flagged: $hits)" >> $out/check_${pid}_thorough.txt)
-    if grep -q "^VIOLATION" $out/check_${pid}_thorough.txt; then cp $out/check_${pid}_thorough.txt $out/check_$pid.txt; fi
-  fi
-fi
-if [ -z "$hits" ] || { ! grep -q "^VIOLATION" $out/check_$pid.txt && grep -q "no obligation was generated" $out/check_$pid.txt; }; then
-  (cd $V && python3 check.py $pid --tier $tier > $out/check_$pid.txt 2>$out/check_$pid.err; echo "exit=$? (tier $tier, full check; native sweep flagged nothing the restricted runs could decide)" >> $out/check_$pid.txt)
-fi
-=if [ -n "$hits" ]; then
-  (cd $V && VERIF_ONLY="$hits" python3 check.py $pid --tier $tier > $out/check_$pid.txt 2>$out/check_$pid.err; echo "exit=$? (tier $tier, restricted to the harnesses the native sweep flagged: $hits)" >> $out/check_$pid.txt)
-  if ! grep -q "^VIOLATION" $out/check_$pid.txt && [ "$tier" = quick ]; then
-    # the flagged harnesses may belong to the thorough tier only (larger bounds, slow ones)
-    (cd $V && VERIF_ONLY="$hits" python3 check.py $pid --tier thorough > $out/check_${pid}_thorough.txt 2>$out/check_${pid}_thorough.err; echo "exit=$? (tier thorough, restricted to the harnesses the native sweep flagged: $hits)" >> $out/check_${pid}_thorough.txt)
-    if grep -q "^VIOLATION" $out/check_${pid}_thorough.txt; then cp $out/check_${pid}_thorough.txt $out/check_$pid.txt; fi
-  fi
-fi
-if [ -z "$hits" ] || { ! grep -q "^VIOLATION" $out/check_$pid.txt && grep -q "no obligation was generated" $out/check_$pid.txt; }; then
-  (cd $V && python3 check.py $pid --tier $tier > $out/check_$pid.txt 2>$out/check_$pid.err; echo "exit=$? (tier $tier, full check; native sweep flagged nothing the restricted runs could decide)" >> $out/check_$pid.txt)
-fi
-$if [ -n "$hits" ]; then
-  (cd $V && VERIF_ONLY="$hits" python3 check.py $pid --tier $tier > $out/check_$pid.txt 2>$out/check_$pid.err; echo "exit=$? (tier $tier, restricted to the harnesses the native sweep flagged: $hits)" >> $out/check_$pid.txt)
-  if ! grep -q "^VIOLATION" $out/check_$pid.txt && [ "$tier" = quick ]; then
-    # the flagged harnesses may belong to the thorough tier only (larger bounds, slow ones)
-    (cd $V && VERIF_ONLY="$hits" python3 check.py $pid --tier thorough > $out/check_${pid}_thorough.txt 2>$out/check_${pid}_thorough.err; echo "exit=$? (tier thorough, restricted to the harnesses the native sweep flagged: $hits)" >> $out/check_${pid}_thorough.txt)
-    if grep -q "^VIOLATION" $out/check_${pid}_thorough.txt; then cp $out/check_${pid}_thorough.txt $out/check_$pid.txt; fi
-  fi
-fi
-if [ -z "$hits" ] || { ! grep -q "^VIOLATION" $out/check_$pid.txt && grep -q "no obligation was generated" $out/check_$pid.txt; }; then
-  (cd $V && python3 check.py $pid --tier $tier > $out/check_$pid.txt 2>$out/check_$pid.err; echo "exit=$? (tier $tier, full check; native sweep flagged nothing the restricted runs could decide)" >> $out/check_$pid.txt)
-fi
-bif [ -n "$hits" ]; then
-  (cd $V && VERIF_ONLY="$hits" python3 check.py $pid --tier $tier > $out/check_$pid.txt 2>$out/check_$pid.err; echo "exit=$? (tier $tier, restricted to the harnesses the native sweep flagged: $hits)" >> $out/check_$pid.txt)
-  if ! grep -q "^VIOLATION" $out/check_$pid.txt && [ "$tier" = quick ]; then
-    # the flagged harnesses may belong to the thorough tier only (larger bounds, slow ones)
-    (cd $V && VERIF_ONLY="$hits" python3 check.py $pid --tier thorough > $out/check_${pid}_thorough.txt 2>$out/check_${pid}_thorough.err; echo "exit=$? (tier thorough, restricted to the harnesses the native sweep flagged: $hits)" >> $out/check_${pid}_thorough.txt)
-    if grep -q "^VIOLATION" $out/check_${pid}_thorough.txt; then cp $out/check_${pid}_thorough.txt $out/check_$pid.txt; fi
-  fi
-fi
-if [ -z "$hits" ] || { ! grep -q "^VIOLATION" $out/check_$pid.txt && grep -q "no obligation was generated" $out/check_$pid.txt; }; then
-  (cd $V && python3 check.py $pid --tier $tier > $out/check_$pid.txt 2>$out/check_$pid.err; echo "exit=$? (tier $tier, full check; native sweep flagged nothing the restricted runs could decide)" >> $out/check_$pid.txt)
-fi
-aif [ -n "$hits" ]; then
-  (cd $V && VERIF_ONLY="$hits" python3 check.py $pid --tier $tier > $out/check_$pid.txt 2>$out/check_$pid.err; echo "exit=$? (tier $tier, restricted to the harnesses the native sweep flagged: $hits)" >> $out/check_$pid.txt)
-  if ! grep -q "^VIOLATION" $out/check_$pid.txt && [ "$tier" = quick ]; then
-    # the flagged harnesses may belong to the thorough tier only (larger bounds, slow ones)
-    (cd $V && VERIF_ONLY="$hits" python3 check.py $pid --tier thorough > $out/check_${pid}_thorough.txt 2>$out/check_${pid}_thorough.err; echo "exit=$? (tier thorough, restricted to the harnesses the native sweep flagged: $hits)" >> $out/check_${pid}_thorough.txt)
-    if grep -q "^VIOLATION" $out/check_${pid}_thorough.txt; then cp $out/check_${pid}_thorough.txt $out/check_$pid.txt; fi
-  fi
-fi
-if [ -z "$hits" ] || { ! grep -q "^VIOLATION" $out/check_$pid.txt && grep -q "no obligation was generated" $out/check_$pid.txt; }; then
-  (cd $V && python3 check.py $pid --tier $tier > $out/check_$pid.txt 2>$out/check_$pid.err; echo "exit=$? (tier $tier, full check; native sweep flagged nothing the restricted runs could decide)" >> $out/check_$pid.txt)
-fi
-sif [ -n "$hits" ]; then
-  (cd $V && VERIF_ONLY="$hits" python3 check.py $pid --tier $tier > $out/check_$pid.txt 2>$out/check_$pid.err; echo "exit=$? (tier $tier, restricted to the harnesses the native sweep flagged: $hits)" >> $out/check_$pid.txt)
-  if ! grep -q "^VIOLATION" $out/check_$pid.txt && [ "$tier" = quick ]; then
-    # the flagged harnesses may belong to the thorough tier only (larger bounds, slow ones)
-    (cd $V && VERIF_ONLY="$hits" python3 check.py $pid --tier thorough > $out/check_${pid}_thorough.txt 2>$out/check_${pid}_thorough.err; echo "exit=$? (tier thorough, restricted to the harnesses the native sweep flagged: $hits)" >> $out/check_${pid}_thorough.txt)
-    if grep -q "^VIOLATION" $out/check_${pid}_thorough.txt; then cp $out/check_${pid}_thorough.txt $out/check_$pid.txt; fi
-  fi
-fi
-if [ -z "$hits" ] || { ! grep -q "^VIOLATION" $out/check_$pid.txt && grep -q "no obligation was generated" $out/check_$pid.txt; }; then
-  (cd $V && python3 check.py $pid --tier $tier > $out/check_$pid.txt 2>$out/check_$pid.err; echo "exit=$? (tier $tier, full check; native sweep flagged nothing the restricted runs could decide)" >> $out/check_$pid.txt)
-fi
-eif [ -n "$hits" ]; then
-  (cd $V && VERIF_ONLY="$hits" python3 check.py $pid --tier $tier > $out/check_$pid.txt 2>$out/check_$pid.err; echo "exit=$? (tier $tier, restricted to the harnesses the native sweep flagged: $hits)" >> $out/check_$pid.txt)
-  if ! grep -q "^VIOLATION" $out/check_$pid.txt && [ "$tier" = quick ]; then
-    # the flagged harnesses may belong to the thorough tier only (larger bounds, slow ones)
-    (cd $V && VERIF_ONLY="$hits" python3 check.py $pid --tier thorough > $out/check_${pid}_thorough.txt 2>$out/check_${pid}_thorough.err; echo "exit=$? (tier thorough, restricted to the harnesses the native sweep flagged: $hits)" >> $out/check_${pid}_thorough.txt)
-    if grep -q "^VIOLATION" $out/check_${pid}_thorough.txt; then cp $out/check_${pid}_thorough.txt $out/check_$pid.txt; fi
-  fi
-fi
-if [ -z "$hits" ] || { ! grep -q "^VIOLATION" $out/check_$pid.txt && grep -q "no obligation was generated" $out/check_$pid.txt; }; then
-  (cd $V && python3 check.py $pid --tier $tier > $out/check_$pid.txt 2>$out/check_$pid.err; echo "exit=$? (tier $tier, full check; native sweep flagged nothing the restricted runs could decide)" >> $out/check_$pid.txt)
-fi
- if [ -n "$hits" ]; then
-  (cd $V && VERIF_ONLY="$hits" python3 check.py $pid --tier $tier > $out/check_$pid.txt 2>$out/check_$pid.err; echo "exit=$? (tier $tier, restricted to the harnesses the native sweep flagged: $hits)" >> $out/check_$pid.txt)
-  if ! grep -q "^VIOLATION" $out/check_$pid.txt && [ "$tier" = quick ]; then
-    # the flagged harnesses may belong to the thorough tier only (larger bounds, slow ones)
-    (cd $V && VERIF_ONLY="$hits" python3 check.py $pid --tier thorough > $out/check_${pid}_thorough.txt 2>$out/check_${pid}_thorough.err; echo "exit=$? (tier thorough, restricted to the harnesses the native sweep flagged: $hits)" >> $out/check_${pid}_thorough.txt)
-    if grep -q "^VIOLATION" $out/check_${pid}_thorough.txt; then cp $out/check_${pid}_thorough.txt $out/check_$pid.txt; fi
-  fi
-fi
-if [ -z "$hits" ] || { ! grep -q "^VIOLATION" $out/check_$pid.txt && grep -q "no obligation was generated" $out/check_$pid.txt; }; then
-  (cd $V && python3 check.py $pid --tier $tier > $out/check_$pid.txt 2>$out/check_$pid.err; echo "exit=$? (tier $tier, full check; native sweep flagged nothing the restricted runs could decide)" >> $out/check_$pid.txt)
-fi
-Vif [ -n "$hits" ]; then
-  (cd $V && VERIF_ONLY="$hits" python3 check.py $pid --tier $tier > $out/check_$pid.txt 2>$out/check_$pid.err; echo "exit=$? (tier $tier, restricted to the harnesses the native sweep flagged: $hits)" >> $out/check_$pid.txt)
-  if ! grep -q "^VIOLATION" $out/check_$pid.txt && [ "$tier" = quick ]; then
-    # the flagged harnesses may belong to the thorough tier only (larger bounds, slow ones)
-    (cd $V && VERIF_ONLY="$hits" python3 check.py $pid --tier thorough > $out/check_${pid}_thorough.txt 2>$out/check_${pid}_thorough.err; echo "exit=$? (tier thorough, restricted to the harnesses the native sweep flagged: $hits)" >> $out/check_${pid}_thorough.txt)
-    if grep -q "^VIOLATION" $out/check_${pid}_thorough.txt; then cp $out/check_${pid}_thorough.txt $out/check_$pid.txt; fi
-  fi
-fi
-if [ -z "$hits" ] || { ! grep -q "^VIOLATION" $out/check_$pid.txt && grep -q "no obligation was generated" $out/check_$pid.txt; }; then
-  (cd $V && python3 check.py $pid --tier $tier > $out/check_$pid.txt 2>$out/check_$pid.err; echo "exit=$? (tier $tier, full check; native sweep flagged nothing the restricted runs could decide)" >> $out/check_$pid.txt)
-fi
-Eif [ -n "$hits" ]; then
-  (cd $V && VERIF_ONLY="$hits" python3 check.py $pid --tier $tier > $out/check_$pid.txt 2>$out/check_$pid.err; echo "exit=$? (tier $tier, restricted to the harnesses the native sweep flagged: $hits)" >> $out/check_$pid.txt)
-  if ! grep -q "^VIOLATION" $out/check_$pid.txt && [ "$tier" = quick ]; then
-    # the flagged harnesses may belong to the thorough tier only (larger bounds, slow ones)
-    (cd $V && VERIF_ONLY="$hits" python3 check.py $pid --tier thorough > $out/check_${pid}_thorough.txt 2>$out/check_${pid}_thorough.err; echo "exit=$? (tier thorough, restricted to the harnesses the native sweep flagged: $hits)" >> $out/check_${pid}_thorough.txt)
-    if grep -q "^VIOLATION" $out/check_${pid}_thorough.txt; then cp $out/check_${pid}_thorough.txt $out/check_$pid.txt; fi
-  fi
-fi
-if [ -z "$hits" ] || { ! grep -q "^VIOLATION" $out/check_$pid.txt && grep -q "no obligation was generated" $out/check_$pid.txt; }; then
-  (cd $V && python3 check.py $pid --tier $tier > $out/check_$pid.txt 2>$out/check_$pid.err; echo "exit=$? (tier $tier, full check; native sweep flagged nothing the restricted runs could decide)" >> $out/check_$pid.txt)
-fi
-Rif [ -n "$hits" ]; then
-  (cd $V && VERIF_ONLY="$hits" python3 check.py $pid --tier $tier > $out/check_$pid.txt 2>$out/check_$pid.err; echo "exit=$? (tier $tier, restricted to the harnesses the native sweep flagged: $hits)" >> $out/check_$pid.txt)
-  if ! grep -q "^VIOLATION" $out/check_$pid.txt && [ "$tier" = quick ]; then
-    # the flagged harnesses may belong to the thorough tier only (larger bounds, slow ones)
-    (cd $V && VERIF_ONLY="$hits" python3 check.py $pid --tier thorough > $out/check_${pid}_thorough.txt 2>$out/check_${pid}_thorough.err; echo "exit=$? (tier thorough, restricted to the harnesses the native sweep flagged: $hits)" >> $out/check_${pid}_thorough.txt)
-    if grep -q "^VIOLATION" $out/check_${pid}_thorough.txt; then cp $out/check_${pid}_thorough.txt $out/check_$pid.txt; fi
-  fi
-fi
-if [ -z "$hits" ] || { ! grep -q "^VIOLATION" $out/check_$pid.txt && grep -q "no obligation was generated" $out/check_$pid.txt; }; then
-  (cd $V && python3 check.py $pid --tier $tier > $out/check_$pid.txt 2>$out/check_$pid.err; echo "exit=$? (tier $tier, full check; native sweep flagged nothing the restricted runs could decide)" >> $out/check_$pid.txt)
-fi
-Iif [ -n "$hits" ]; then
-  (cd $V && VERIF_ONLY="$hits" python3 check.py $pid --tier $tier > $out/check_$pid.txt 2>$out/check_$pid.err; echo "exit=$? (tier $tier, restricted to the harnesses the native sweep flagged: $hits)" >> $out/check_$pid.txt)
-  if ! grep -q "^VIOLATION" $out/check_$pid.txt && [ "$tier" = quick ]; then
-    # the flagged harnesses may belong to the thorough tier only (larger bounds, slow ones)
-    (cd $V && VERIF_ONLY="$hits" python3 check.py $pid --tier thorough > $out/check_${pid}_thorough.txt 2>$out/check_${pid}_thorough.err; echo "exit=$? (tier thorough, restricted to the harnesses the native sweep flagged: $hits)" >> $out/check_${pid}_thorough.txt)
-    if grep -q "^VIOLATION" $out/check_${pid}_thorough.txt; then cp $out/check_${pid}_thorough.txt $out/check_$pid.txt; fi
-  fi
-fi
-if [ -z "$hits" ] || { ! grep -q "^VIOLATION" $out/check_$pid.txt && grep -q "no obligation was generated" $out/check_$pid.txt; }; then
-  (cd $V && python3 check.py $pid --tier $tier > $out/check_$pid.txt 2>$out/check_$pid.err; echo "exit=$? (tier $tier, full check; native sweep flagged nothing the restricted runs could decide)" >> $out/check_$pid.txt)
-fi
-Fif [ -n "$hits" ]; then
-  (cd $V && VERIF_ONLY="$hits" python3 check.py $pid --tier $tier > $out/check_$pid.txt 2>$out/check_$pid.err; echo "exit=$? (tier $tier, restricted to the harnesses the native sweep flagged: $hits)" >> $out/check_$pid.txt)
-  if ! grep -q "^VIOLATION" $out/check_$pid.txt && [ "$tier" = quick ]; then
-    # the flagged harnesses may belong to the thorough tier only (larger bounds, slow ones)
-    (cd $V && VERIF_ONLY="$hits" python3 check.py $pid --tier thorough > $out/check_${pid}_thorough.txt 2>$out/check_${pid}_thorough.err; echo "exit=$? (tier thorough, restricted to the harnesses the native sweep flagged: $hits)" >> $out/check_${pid}_thorough.txt)
-    if grep -q "^VIOLATION" $out/check_${pid}_thorough.txt; then cp $out/check_${pid}_thorough.txt $out/check_$pid.txt; fi
-  fi
-fi
-if [ -z "$hits" ] || { ! grep -q "^VIOLATION" $out/check_$pid.txt && grep -q "no obligation was generated" $out/check_$pid.txt; }; then
-  (cd $V && python3 check.py $pid --tier $tier > $out/check_$pid.txt 2>$out/check_$pid.err; echo "exit=$? (tier $tier, full check; native sweep flagged nothing the restricted runs could decide)" >> $out/check_$pid.txt)
-fi
-_if [ -n "$hits" ]; then
-  (cd $V && VERIF_ONLY="$hits" python3 check.py $pid --tier $tier > $out/check_$pid.txt 2>$out/check_$pid.err; echo "exit=$? (tier $tier, restricted to the harnesses the native sweep flagged: $hits)" >> $out/check_$pid.txt)
-  if ! grep -q "^VIOLATION" $out/check_$pid.txt && [ "$tier" = quick ]; then
-    # the flagged harnesses may belong to the thorough tier only (larger bounds, slow ones)
-    (cd $V && VERIF_ONLY="$hits" python3 check.py $pid --tier thorough > $out/check_${pid}_thorough.txt 2>$out/check_${pid}_thorough.err; echo "exit=$? (tier thorough, restricted to the harnesses the native sweep flagged: $hits)" >> $out/check_${pid}_thorough.txt)
-    if grep -q "^VIOLATION" $out/check_${pid}_thorough.txt; then cp $out/check_${pid}_thorough.txt $out/check_$pid.txt; fi
-  fi
-fi
-if [ -z "$hits" ] || { ! grep -q "^VIOLATION" $out/check_$pid.txt && grep -q "no obligation was generated" $out/check_$pid.txt; }; then
-  (cd $V && python3 check.py $pid --tier $tier > $out/check_$pid.txt 2>$out/check_$pid.err; echo "exit=$? (tier $tier, full check; native sweep flagged nothing the restricted runs could decide)" >> $out/check_$pid.txt)
-fi
-Wif [ -n "$hits" ]; then
-  (cd $V && VERIF_ONLY="$hits" python3 check.py $pid --tier $tier > $out/check_$pid.txt 2>$out/check_$pid.err; echo "exit=$? (tier $tier, restricted to the harnesses the native sweep flagged: $hits)" >> $out/check_$pid.txt)
-  if ! grep -q "^VIOLATION" $out/check_$pid.txt && [ "$tier" = quick ]; then
-    # the flagged harnesses may belong to the thorough tier only (larger bounds, slow ones)
-    (cd $V && VERIF_ONLY="$hits" python3 check.py $pid --tier thorough > $out/check_${pid}_thorough.txt 2>$out/check_${pid}_thorough.err; echo "exit=$? (tier thorough, restricted to the harnesses the native sweep flagged: $hits)" >> $out/check_${pid}_thorough.txt)
-    if grep -q "^VIOLATION" $out/check_${pid}_thorough.txt; then cp $out/check_${pid}_thorough.txt $out/check_$pid.txt; fi
-  fi
-fi
-if [ -z "$hits" ] || { ! grep -q "^VIOLATION" $out/check_$pid.txt && grep -q "no obligation was generated" $out/check_$pid.txt; }; then
-  (cd $V && python3 check.py $pid --tier $tier > $out/check_$pid.txt 2>$out/check_$pid.err; echo "exit=$? (tier $tier, full check; native sweep flagged nothing the restricted runs could decide)" >> $out/check_$pid.txt)
-fi
-Oif [ -n "$hits" ]; then
-  (cd $V && VERIF_ONLY="$hits" python3 check.py $pid --tier $tier > $out/check_$pid.txt 2>$out/check_$pid.err; echo "exit=$? (tier $tier, restricted to the harnesses the native sweep flagged: $hits)" >> $out/check_$pid.txt)
-  if ! grep -q "^VIOLATION" $out/check_$pid.txt && [ "$tier" = quick ]; then
-    # the flagged harnesses may belong to the thorough tier only (larger bounds, slow ones)
-    (cd $V && VERIF_ONLY="$hits" python3 check.py $pid --tier thorough > $out/check_${pid}_thorough.txt 2>$out/check_${pid}_thorough.err; echo "exit=$? (tier thorough, restricted to the harnesses the native sweep flagged: $hits)" >> $out/check_${pid}_thorough.txt)
-    if grep -q "^VIOLATION" $out/check_${pid}_thorough.txt; then cp $out/check_${pid}_thorough.txt $out/check_$pid.txt; fi
-  fi
-fi
-if [ -z "$hits" ] || { ! grep -q "^VIOLATION" $out/check_$pid.txt && grep -q "no obligation was generated" $out/check_$pid.txt; }; then
-  (cd $V && python3 check.py $pid --tier $tier > $out/check_$pid.txt 2>$out/check_$pid.err; echo "exit=$? (tier $tier, full check; native sweep flagged nothing the restricted runs could decide)" >> $out/check_$pid.txt)
-fi
-Rif [ -n "$hits" ]; then
-  (cd $V && VERIF_ONLY="$hits" python3 check.py $pid --tier $tier > $out/check_$pid.txt 2>$out/check_$pid.err; echo "exit=$? (tier $tier, restricted to the harnesses the native sweep flagged: $hits)" >> $out/check_$pid.txt)
-  if ! grep -q "^VIOLATION" $out/check_$pid.txt && [ "$tier" = quick ]; then
-    # the flagged harnesses may belong to the thorough tier only (larger bounds, slow ones)
-    (cd $V && VERIF_ONLY="$hits" python3 check.py $pid --tier thorough > $out/check_${pid}_thorough.txt 2>$out/check_${pid}_thorough.err; echo "exit=$? (tier thorough, restricted to the harnesses the native sweep flagged: $hits)" >> $out/check_${pid}_thorough.txt)
-    if grep -q "^VIOLATION" $out/check_${pid}_thorough.txt; then cp $out/check_${pid}_thorough.txt $out/check_$pid.txt; fi
-  fi
-fi
-if [ -z "$hits" ] || { ! grep -q "^VIOLATION" $out/check_$pid.txt && grep -q "no obligation was generated" $out/check_$pid.txt; }; then
-  (cd $V && python3 check.py $pid --tier $tier > $out/check_$pid.txt 2>$out/check_$pid.err; echo "exit=$? (tier $tier, full check; native sweep flagged nothing the restricted runs could decide)" >> $out/check_$pid.txt)
-fi
-Kif [ -n "$hits" ]; then
-  (cd $V && VERIF_ONLY="$hits" python3 check.py $pid --tier $tier > $out/check_$pid.txt 2>$out/check_$pid.err; echo "exit=$? (tier $tier, restricted to the harnesses the native sweep flagged: $hits)" >> $out/check_$pid.txt)
-  if ! grep -q "^VIOLATION" $out/check_$pid.txt && [ "$tier" = quick ]; then
-    # the flagged harnesses may belong to the thorough tier only (larger bounds, slow ones)
-    (cd $V && VERIF_ONLY="$hits" python3 check.py $pid --tier thorough > $out/check_${pid}_thorough.txt 2>$out/check_${pid}_thorough.err; echo "exit=$? (tier thorough, restricted to the harnesses the native sweep flagged: $hits)" >> $out/check_${pid}_thorough.txt)
-    if grep -q "^VIOLATION" $out/check_${pid}_thorough.txt; then cp $out/check_${pid}_thorough.txt $out/check_$pid.txt; fi
-  fi
-fi
-if [ -z "$hits" ] || { ! grep -q "^VIOLATION" $out/check_$pid.txt && grep -q "no obligation was generated" $out/check_$pid.txt; }; then
-  (cd $V && python3 check.py $pid --tier $tier > $out/check_$pid.txt 2>$out/check_$pid.err; echo "exit=$? (tier $tier, full check; native sweep flagged nothing the restricted runs could decide)" >> $out/check_$pid.txt)
-fi
-=if [ -n "$hits" ]; then
-  (cd $V && VERIF_ONLY="$hits" python3 check.py $pid --tier $tier > $out/check_$pid.txt 2>$out/check_$pid.err; echo "exit=$? (tier $tier, restricted to the harnesses the native sweep flagged: $hits)" >> $out/check_$pid.txt)
-  if ! grep -q "^VIOLATION" $out/check_$pid.txt && [ "$tier" = quick ]; then
-    # the flagged harnesses may belong to the thorough tier only (larger bounds, slow ones)
-    (cd $V && VERIF_ONLY="$hits" python3 check.py $pid --tier thorough > $out/check_${pid}_thorough.txt 2>$out/check_${pid}_thorough.err; echo "exit=$? (tier thorough, restricted to the harnesses the native sweep flagged: $hits)" >> $out/check_${pid}_thorough.txt)
-    if grep -q "^VIOLATION" $out/check_${pid}_thorough.txt; then cp $out/check_${pid}_thorough.txt $out/check_$pid.txt; fi
-  fi
-fi
-if [ -z "$hits" ] || { ! grep -q "^VIOLATION" $out/check_$pid.txt && grep -q "no obligation was generated" $out/check_$pid.txt; }; then
-  (cd $V && python3 check.py $pid --tier $tier > $out/check_$pid.txt 2>$out/check_$pid.err; echo "exit=$? (tier $tier, full check; native sweep flagged nothing the restricted runs could decide)" >> $out/check_$pid.txt)
-fi
-/if [ -n "$hits" ]; then
-  (cd $V && VERIF_ONLY="$hits" python3 check.py $pid --tier $tier > $out/check_$pid.txt 2>$out/check_$pid.err; echo "exit=$? (tier $tier, restricted to the harnesses the native sweep flagged: $hits)" >> $out/check_$pid.txt)
-  if ! grep -q "^VIOLATION" $out/check_$pid.txt && [ "$tier" = quick ]; then
-    # the flagged harnesses may belong to the thorough tier only (larger bounds, slow ones)
-    (cd $V && VERIF_ONLY="$hits" python3 check.py $pid --tier thorough > $out/check_${pid}_thorough.txt 2>$out/check_${pid}_thorough.err; echo "exit=$? (tier thorough, restricted to the harnesses the native sweep flagged: $hits)" >> $out/check_${pid}_thorough.txt)
-    if grep -q "^VIOLATION" $out/check_${pid}_thorough.txt; then cp $out/check_${pid}_thorough.txt $out/check_$pid.txt; fi
-  fi
-fi
-if [ -z "$hits" ] || { ! grep -q "^VIOLATION" $out/check_$pid.txt && grep -q "no obligation was generated" $out/check_$pid.txt; }; then
-  (cd $V && python3 check.py $pid --tier $tier > $out/check_$pid.txt 2>$out/check_$pid.err; echo "exit=$? (tier $tier, full check; native sweep flagged nothing the restricted runs could decide)" >> $out/check_$pid.txt)
-fi
-tif [ -n "$hits" ]; then
-  (cd $V && VERIF_ONLY="$hits" python3 check.py $pid --tier $tier > $out/check_$pid.txt 2>$out/check_$pid.err; echo "exit=$? (tier $tier, restricted to the harnesses the native sweep flagged: $hits)" >> $out/check_$pid.txt)
-  if ! grep -q "^VIOLATION" $out/check_$pid.txt && [ "$tier" = quick ]; then
-    # the flagged harnesses may belong to the thorough tier only (larger bounds, slow ones)
-    (cd $V && VERIF_ONLY="$hits" python3 check.py $pid --tier thorough > $out/check_${pid}_thorough.txt 2>$out/check_${pid}_thorough.err; echo "exit=$? (tier thorough, restricted to the harnesses the native sweep flagged: $hits)" >> $out/check_${pid}_thorough.txt)
-    if grep -q "^VIOLATION" $out/check_${pid}_thorough.txt; then cp $out/check_${pid}_thorough.txt $out/check_$pid.txt; fi
-  fi
-fi
-if [ -z "$hits" ] || { ! grep -q "^VIOLATION" $out/check_$pid.txt && grep -q "no obligation was generated" $out/check_$pid.txt; }; then
-  (cd $V && python3 check.py $pid --tier $tier > $out/check_$pid.txt 2>$out/check_$pid.err; echo "exit=$? (tier $tier, full check; native sweep flagged nothing the restricted runs could decide)" >> $out/check_$pid.txt)
-fi
-mif [ -n "$hits" ]; then
-  (cd $V && VERIF_ONLY="$hits" python3 check.py $pid --tier $tier > $out/check_$pid.txt 2>$out/check_$pid.err; echo "exit=$? (tier $tier, restricted to the harnesses the native sweep flagged: $hits)" >> $out/check_$pid.txt)
-  if ! grep -q "^VIOLATION" $out/check_$pid.txt && [ "$tier" = quick ]; then
-    # the flagged harnesses may belong to the thorough tier only (larger bounds, slow ones)
-    (cd $V && VERIF_ONLY="$hits" python3 check.py $pid --tier thorough > $out/check_${pid}_thorough.txt 2>$out/check_${pid}_thorough.err; echo "exit=$? (tier thorough, restricted to the harnesses the native sweep flagged: $hits)" >> $out/check_${pid}_thorough.txt)
-    if grep -q "^VIOLATION" $out/check_${pid}_thorough.txt; then cp $out/check_${pid}_thorough.txt $out/check_$pid.txt; fi
-  fi
-fi
-if [ -z "$hits" ] || { ! grep -q "^VIOLATION" $out/check_$pid.txt && grep -q "no obligation was generated" $out/check_$pid.txt; }; then
-  (cd $V && python3 check.py $pid --tier $tier > $out/check_$pid.txt 2>$out/check_$pid.err; echo "exit=$? (tier $tier, full check; native sweep flagged nothing the restricted runs could decide)" >> $out/check_$pid.txt)
-fi
-pif [ -n "$hits" ]; then
-  (cd $V && VERIF_ONLY="$hits" python3 check.py $pid --tier $tier > $out/check_$pid.txt 2>$out/check_$pid.err; echo "exit=$? (tier $tier, restricted to the harnesses the native sweep flagged: $hits)" >> $out/check_$pid.txt)
-  if ! grep -q "^VIOLATION" $out/check_$pid.txt && [ "$tier" = quick ]; then
-    # the flagged harnesses may belong to the thorough tier only (larger bounds, slow ones)
-    (cd $V && VERIF_ONLY="$hits" python3 check.py $pid --tier thorough > $out/check_${pid}_thorough.txt 2>$out/check_${pid}_thorough.err; echo "exit=$? (tier thorough, restricted to the harnesses the native sweep flagged: $hits)" >> $out/check_${pid}_thorough.txt)
-    if grep -q "^VIOLATION" $out/check_${pid}_thorough.txt; then cp $out/check_${pid}_thorough.txt $out/check_$pid.txt; fi
-  fi
-fi
-if [ -z "$hits" ] || { ! grep -q "^VIOLATION" $out/check_$pid.txt && grep -q "no obligation was generated" $out/check_$pid.txt; }; then
-  (cd $V && python3 check.py $pid --tier $tier > $out/check_$pid.txt 2>$out/check_$pid.err; echo "exit=$? (tier $tier, full check; native sweep flagged nothing the restricted runs could decide)" >> $out/check_$pid.txt)
-fi
-/if [ -n "$hits" ]; then
-  (cd $V && VERIF_ONLY="$hits" python3 check.py $pid --tier $tier > $out/check_$pid.txt 2>$out/check_$pid.err; echo "exit=$? (tier $tier, restricted to the harnesses the native sweep flagged: $hits)" >> $out/check_$pid.txt)
-  if ! grep -q "^VIOLATION" $out/check_$pid.txt && [ "$tier" = quick ]; then
-    # the flagged harnesses may belong to the thorough tier only (larger bounds, slow ones)
-    (cd $V && VERIF_ONLY="$hits" python3 check.py $pid --tier thorough > $out/check_${pid}_thorough.txt 2>$out/check_${pid}_thorough.err; echo "exit=$? (tier thorough, restricted to the harnesses the native sweep flagged: $hits)" >> $out/check_${pid}_thorough.txt)
-    if grep -q "^VIOLATION" $out/check_${pid}_thorough.txt; then cp $out/check_${pid}_thorough.txt $out/check_$pid.txt; fi
-  fi
-fi
-if [ -z "$hits" ] || { ! grep -q "^VIOLATION" $out/check_$pid.txt && grep -q "no obligation was generated" $out/check_$pid.txt; }; then
-  (cd $V && python3 check.py $pid --tier $tier > $out/check_$pid.txt 2>$out/check_$pid.err; echo "exit=$? (tier $tier, full check; native sweep flagged nothing the restricted runs could decide)" >> $out/check_$pid.txt)
-fi
-sif [ -n "$hits" ]; then
-  (cd $V && VERIF_ONLY="$hits" python3 check.py $pid --tier $tier > $out/check_$pid.txt 2>$out/check_$pid.err; echo "exit=$? (tier $tier, restricted to the harnesses the native sweep flagged: $hits)" >> $out/check_$pid.txt)
-  if ! grep -q "^VIOLATION" $out/check_$pid.txt && [ "$tier" = quick ]; then
-    # the flagged harnesses may belong to the thorough tier only (larger bounds, slow ones)
-    (cd $V && VERIF_ONLY="$hits" python3 check.py $pid --tier thorough > $out/check_${pid}_thorough.txt 2>$out/check_${pid}_thorough.err; echo "exit=$? (tier thorough, restricted to the harnesses the native sweep flagged: $hits)" >> $out/check_${pid}_thorough.txt)
-    if grep -q "^VIOLATION" $out/check_${pid}_thorough.txt; then cp $out/check_${pid}_thorough.txt $out/check_$pid.txt; fi
-  fi
-fi
-if [ -z "$hits" ] || { ! grep -q "^VIOLATION" $out/check_$pid.txt && grep -q "no obligation was generated" $out/check_$pid.txt; }; then
-  (cd $V && python3 check.py $pid --tier $tier > $out/check_$pid.txt 2>$out/check_$pid.err; echo "exit=$? (tier $tier, full check; native sweep flagged nothing the restricted runs could decide)" >> $out/check_$pid.txt)
-fi
-eif [ -n "$hits" ]; then
-  (cd $V && VERIF_ONLY="$hits" python3 check.py $pid --tier $tier > $out/check_$pid.txt 2>$out/check_$pid.err; echo "exit=$? (tier $tier, restricted to the harnesses the native sweep flagged: $hits)" >> $out/check_$pid.txt)
-  if ! grep -q "^VIOLATION" $out/check_$pid.txt && [ "$tier" = quick ]; then
-    # the flagged harnesses may belong to the thorough tier only (larger bounds, slow ones)
-    (cd $V && VERIF_ONLY="$hits" python3 check.py $pid --tier thorough > $out/check_${pid}_thorough.txt 2>$out/check_${pid}_thorough.err; echo "exit=$? (tier thorough, restricted to the harnesses the native sweep flagged: $hits)" >> $out/check_${pid}_thorough.txt)
-    if grep -q "^VIOLATION" $out/check_${pid}_thorough.txt; then cp $out/check_${pid}_thorough.txt $out/check_$pid.txt; fi
-  fi
-fi
-if [ -z "$hits" ] || { ! grep -q "^VIOLATION" $out/check_$pid.txt && grep -q "no obligation was generated" $out/check_$pid.txt; }; then
-  (cd $V && python3 check.py $pid --tier $tier > $out/check_$pid.txt 2>$out/check_$pid.err; echo "exit=$? (tier $tier, full check; native sweep flagged nothing the restricted runs could decide)" >> $out/check_$pid.txt)
-fi
-eif [ -n "$hits" ]; then
-  (cd $V && VERIF_ONLY="$hits" python3 check.py $pid --tier $tier > $out/check_$pid.txt 2>$out/check_$pid.err; echo "exit=$? (tier $tier, restricted to the harnesses the native sweep flagged: $hits)" >> $out/check_$pid.txt)
-  if ! grep -q "^VIOLATION" $out/check_$pid.txt && [ "$tier" = quick ]; then
-    # the flagged harnesses may belong to the thorough tier only (larger bounds, slow ones)
-    (cd $V && VERIF_ONLY="$hits" python3 check.py $pid --tier thorough > $out/check_${pid}_thorough.txt 2>$out/check_${pid}_thorough.err; echo "exit=$? (tier thorough, restricted to the harnesses the native sweep flagged: $hits)" >> $out/check_${pid}_thorough.txt)
-    if grep -q "^VIOLATION" $out/check_${pid}_thorough.txt; then cp $out/check_${pid}_thorough.txt $out/check_$pid.txt; fi
-  fi
-fi
-if [ -z "$hits" ] || { ! grep -q "^VIOLATION" $out/check_$pid.txt && grep -q "no obligation was generated" $out/check_$pid.txt; }; then
-  (cd $V && python3 check.py $pid --tier $tier > $out/check_$pid.txt 2>$out/check_$pid.err; echo "exit=$? (tier $tier, full check; native sweep flagged nothing the restricted runs could decide)" >> $out/check_$pid.txt)
-fi
-dif [ -n "$hits" ]; then
-  (cd $V && VERIF_ONLY="$hits" python3 check.py $pid --tier $tier > $out/check_$pid.txt 2>$out/check_$pid.err; echo "exit=$? (tier $tier, restricted to the harnesses the native sweep flagged: $hits)" >> $out/check_$pid.txt)
-  if ! grep -q "^VIOLATION" $out/check_$pid.txt && [ "$tier" = quick ]; then
-    # the flagged harnesses may belong to the thorough tier only (larger bounds, slow ones)
-    (cd $V && VERIF_ONLY="$hits" python3 check.py $pid --tier thorough > $out/check_${pid}_thorough.txt 2>$out/check_${pid}_thorough.err; echo "exit=$? (tier thorough, restricted to the harnesses the native sweep flagged: $hits)" >> $out/check_${pid}_thorough.txt)
-    if grep -q "^VIOLATION" $out/check_${pid}_thorough.txt; then cp $out/check_${pid}_thorough.txt $out/check_$pid.txt; fi
-  fi
-fi
-if [ -z "$hits" ] || { ! grep -q "^VIOLATION" $out/check_$pid.txt && grep -q "no obligation was generated" $out/check_$pid.txt; }; then
-  (cd $V && python3 check.py $pid --tier $tier > $out/check_$pid.txt 2>$out/check_$pid.err; echo "exit=$? (tier $tier, full check; native sweep flagged nothing the restricted runs could decide)" >> $out/check_$pid.txt)
-fi
-rif [ -n "$hits" ]; then
-  (cd $V && VERIF_ONLY="$hits" python3 check.py $pid --tier $tier > $out/check_$pid.txt 2>$out/check_$pid.err; echo "exit=$? (tier $tier, restricted to the harnesses the native sweep flagged: $hits)" >> $out/check_$pid.txt)
-  if ! grep -q "^VIOLATION" $out/check_$pid.txt && [ "$tier" = quick ]; then
-    # the flagged harnesses may belong to the thorough tier only (larger bounds, slow ones)
-    (cd $V && VERIF_ONLY="$hits" python3 check.py $pid --tier thorough > $out/check_${pid}_thorough.txt 2>$out/check_${pid}_thorough.err; echo "exit=$? (tier thorough, restricted to the harnesses the native sweep flagged: $hits)" >> $out/check_${pid}_thorough.txt)
-    if grep -q "^VIOLATION" $out/check_${pid}_thorough.txt; then cp $out/check_${pid}_thorough.txt $out/check_$pid.txt; fi
-  fi
-fi
-if [ -z "$hits" ] || { ! grep -q "^VIOLATION" $out/check_$pid.txt && grep -q "no obligation was generated" $out/check_$pid.txt; }; then
-  (cd $V && python3 check.py $pid --tier $tier > $out/check_$pid.txt 2>$out/check_$pid.err; echo "exit=$? (tier $tier, full check; native sweep flagged nothing the restricted runs could decide)" >> $out/check_$pid.txt)
-fi
-uif [ -n "$hits" ]; then
-  (cd $V && VERIF_ONLY="$hits" python3 check.py $pid --tier $tier > $out/check_$pid.txt 2>$out/check_$pid.err; echo "exit=$? (tier $tier, restricted to the harnesses the native sweep flagged: $hits)" >> $out/check_$pid.txt)
-  if ! grep -q "^VIOLATION" $out/check_$pid.txt && [ "$tier" = quick ]; then
-    # the flagged harnesses may belong to the thorough tier only (larger bounds, slow ones)
-    (cd $V && VERIF_ONLY="$hits" python3 check.py $pid --tier thorough > $out/check_${pid}_thorough.txt 2>$out/check_${pid}_thorough.err; echo "exit=$? (tier thorough, restricted to the harnesses the native sweep flagged: $hits)" >> $out/check_${pid}_thorough.txt)
-    if grep -q "^VIOLATION" $out/check_${pid}_thorough.txt; then cp $out/check_${pid}_thorough.txt $out/check_$pid.txt; fi
-  fi
-fi
-if [ -z "$hits" ] || { ! grep -q "^VIOLATION" $out/check_$pid.txt && grep -q "no obligation was generated" $out/check_$pid.txt; }; then
-  (cd $V && python3 check.py $pid --tier $tier > $out/check_$pid.txt 2>$out/check_$pid.err; echo "exit=$? (tier $tier, full check; native sweep flagged nothing the restricted runs could decide)" >> $out/check_$pid.txt)
-fi
-nif [ -n "$hits" ]; then
-  (cd $V && VERIF_ONLY="$hits" python3 check.py $pid --tier $tier > $out/check_$pid.txt 2>$out/check_$pid.err; echo "exit=$? (tier $tier, restricted to the harnesses the native sweep flagged: $hits)" >> $out/check_$pid.txt)
-  if ! grep -q "^VIOLATION" $out/check_$pid.txt && [ "$tier" = quick ]; then
-    # the flagged harnesses may belong to the thorough tier only (larger bounds, slow ones)
-    (cd $V && VERIF_ONLY="$hits" python3 check.py $pid --tier thorough > $out/check_${pid}_thorough.txt 2>$out/check_${pid}_thorough.err; echo "exit=$? (tier thorough, restricted to the harnesses the native sweep flagged: $hits)" >> $out/check_${pid}_thorough.txt)
-    if grep -q "^VIOLATION" $out/check_${pid}_thorough.txt; then cp $out/check_${pid}_thorough.txt $out/check_$pid.txt; fi
-  fi
-fi
-if [ -z "$hits" ] || { ! grep -q "^VIOLATION" $out/check_$pid.txt && grep -q "no obligation was generated" $out/check_$pid.txt; }; then
-  (cd $V && python3 check.py $pid --tier $tier > $out/check_$pid.txt 2>$out/check_$pid.err; echo "exit=$? (tier $tier, full check; native sweep flagged nothing the restricted runs could decide)" >> $out/check_$pid.txt)
-fi
-/if [ -n "$hits" ]; then
-  (cd $V && VERIF_ONLY="$hits" python3 check.py $pid --tier $tier > $out/check_$pid.txt 2>$out/check_$pid.err; echo "exit=$? (tier $tier, restricted to the harnesses the native sweep flagged: $hits)" >> $out/check_$pid.txt)
-  if ! grep -q "^VIOLATION" $out/check_$pid.txt && [ "$tier" = quick ]; then
-    # the flagged harnesses may belong to the thorough tier only (larger bounds, slow ones)
-    (cd $V && VERIF_ONLY="$hits" python3 check.py $pid --tier thorough > $out/check_${pid}_thorough.txt 2>$out/check_${pid}_thorough.err; echo "exit=$? (tier thorough, restricted to the harnesses the native sweep flagged: $hits)" >> $out/check_${pid}_thorough.txt)
-    if grep -q "^VIOLATION" $out/check_${pid}_thorough.txt; then cp $out/check_${pid}_thorough.txt $out/check_$pid.txt; fi
-  fi
-fi
-if [ -z "$hits" ] || { ! grep -q "^VIOLATION" $out/check_$pid.txt && grep -q "no obligation was generated" $out/check_$pid.txt; }; then
-  (cd $V && python3 check.py $pid --tier $tier > $out/check_$pid.txt 2>$out/check_$pid.err; echo "exit=$? (tier $tier, full check; native sweep flagged nothing the restricted runs could decide)" >> $out/check_$pid.txt)
-fi
-wif [ -n "$hits" ]; then
-  (cd $V && VERIF_ONLY="$hits" python3 check.py $pid --tier $tier > $out/check_$pid.txt 2>$out/check_$pid.err; echo "exit=$? (tier $tier, restricted to the harnesses the native sweep flagged: $hits)" >> $out/check_$pid.txt)
-  if ! grep -q "^VIOLATION" $out/check_$pid.txt && [ "$tier" = quick ]; then
-    # the flagged harnesses may belong to the thorough tier only (larger bounds, slow ones)
-    (cd $V && VERIF_ONLY="$hits" python3 check.py $pid --tier thorough > $out/check_${pid}_thorough.txt 2>$out/check_${pid}_thorough.err; echo "exit=$? (tier thorough, restricted to the harnesses the native sweep flagged: $hits)" >> $out/check_${pid}_thorough.txt)
-    if grep -q "^VIOLATION" $out/check_${pid}_thorough.txt; then cp $out/check_${pid}_thorough.txt $out/check_$pid.txt; fi
-  fi
-fi
-if [ -z "$hits" ] || { ! grep -q "^VIOLATION" $out/check_$pid.txt && grep -q "no obligation was generated" $out/check_$pid.txt; }; then
-  (cd $V && python3 check.py $pid --tier $tier > $out/check_$pid.txt 2>$out/check_$pid.err; echo "exit=$? (tier $tier, full check; native sweep flagged nothing the restricted runs could decide)" >> $out/check_$pid.txt)
-fi
-oif [ -n "$hits" ]; then
-  (cd $V && VERIF_ONLY="$hits" python3 check.py $pid --tier $tier > $out/check_$pid.txt 2>$out/check_$pid.err; echo "exit=$? (tier $tier, restricted to the harnesses the native sweep flagged: $hits)" >> $out/check_$pid.txt)
-  if ! grep -q "^VIOLATION" $out/check_$pid.txt && [ "$tier" = quick ]; then
-    # the flagged harnesses may belong to the thorough tier only (larger bounds, slow ones)
-    (cd $V && VERIF_ONLY="$hits" python3 check.py $pid --tier thorough > $out/check_${pid}_thorough.txt 2>$out/check_${pid}_thorough.err; echo "exit=$? (tier thorough, restricted to the harnesses the native sweep flagged: $hits)" >> $out/check_${pid}_thorough.txt)
-    if grep -q "^VIOLATION" $out/check_${pid}_thorough.txt; then cp $out/check_${pid}_thorough.txt $out/check_$pid.txt; fi
-  fi
-fi
-if [ -z "$hits" ] || { ! grep -q "^VIOLATION" $out/check_$pid.txt && grep -q "no obligation was generated" $out/check_$pid.txt; }; then
-  (cd $V && python3 check.py $pid --tier $tier > $out/check_$pid.txt 2>$out/check_$pid.err; echo "exit=$? (tier $tier, full check; native sweep flagged nothing the restricted runs could decide)" >> $out/check_$pid.txt)
-fi
-rif [ -n "$hits" ]; then
-  (cd $V && VERIF_ONLY="$hits" python3 check.py $pid --tier $tier > $out/check_$pid.txt 2>$out/check_$pid.err; echo "exit=$? (tier $tier, restricted to the harnesses the native sweep flagged: $hits)" >> $out/check_$pid.txt)
-  if ! grep -q "^VIOLATION" $out/check_$pid.txt && [ "$tier" = quick ]; then
-    # the flagged harnesses may belong to the thorough tier only (larger bounds, slow ones)
-    (cd $V && VERIF_ONLY="$hits" python3 check.py $pid --tier thorough > $out/check_${pid}_thorough.txt 2>$out/check_${pid}_thorough.err; echo "exit=$? (tier thorough, restricted to the harnesses the native sweep flagged: $hits)" >> $out/check_${pid}_thorough.txt)
-    if grep -q "^VIOLATION" $out/check_${pid}_thorough.txt; then cp $out/check_${pid}_thorough.txt $out/check_$pid.txt; fi
-  fi
-fi
-if [ -z "$hits" ] || { ! grep -q "^VIOLATION" $out/check_$pid.txt && grep -q "no obligation was generated" $out/check_$pid.txt; }; then
-  (cd $V && python3 check.py $pid --tier $tier > $out/check_$pid.txt 2>$out/check_$pid.err; echo "exit=$? (tier $tier, full check; native sweep flagged nothing the restricted runs could decide)" >> $out/check_$pid.txt)
-fi
-kif [ -n "$hits" ]; then
-  (cd $V && VERIF_ONLY="$hits" python3 check.py $pid --tier $tier > $out/check_$pid.txt 2>$out/check_$pid.err; echo "exit=$? (tier $tier, restricted to the harnesses the native sweep flagged: $hits)" >> $out/check_$pid.txt)
-  if ! grep -q "^VIOLATION" $out/check_$pid.txt && [ "$tier" = quick ]; then
-    # the flagged harnesses may belong to the thorough tier only (larger bounds, slow ones)
-    (cd $V && VERIF_ONLY="$hits" python3 check.py $pid --tier thorough > $out/check_${pid}_thorough.txt 2>$out/check_${pid}_thorough.err; echo "exit=$? (tier thorough, restricted to the harnesses the native sweep flagged: $hits)" >> $out/check_${pid}_thorough.txt)
-    if grep -q "^VIOLATION" $out/check_${pid}_thorough.txt; then cp $out/check_${pid}_thorough.txt $out/check_$pid.txt; fi
-  fi
-fi
-if [ -z "$hits" ] || { ! grep -q "^VIOLATION" $out/check_$pid.txt && grep -q "no obligation was generated" $out/check_$pid.txt; }; then
-  (cd $V && python3 check.py $pid --tier $tier > $out/check_$pid.txt 2>$out/check_$pid.err; echo "exit=$? (tier $tier, full check; native sweep flagged nothing the restricted runs could decide)" >> $out/check_$pid.txt)
-fi
-_if [ -n "$hits" ]; then
-  (cd $V && VERIF_ONLY="$hits" python3 check.py $pid --tier $tier > $out/check_$pid.txt 2>$out/check_$pid.err; echo "exit=$? (tier $tier, restricted to the harnesses the native sweep flagged: $hits)" >> $out/check_$pid.txt)
-  if ! grep -q "^VIOLATION" $out/check_$pid.txt && [ "$tier" = quick ]; then
-    # the flagged harnesses may belong to the thorough tier only (larger bounds, slow ones)
-    (cd $V && VERIF_ONLY="$hits" python3 check.py $pid --tier thorough > $out/check_${pid}_thorough.txt 2>$out/check_${pid}_thorough.err; echo "exit=$? (tier thorough, restricted to the harnesses the native sweep flagged: $hits)" >> $out/check_${pid}_thorough.txt)
-    if grep -q "^VIOLATION" $out/check_${pid}_thorough.txt; then cp $out/check_${pid}_thorough.txt $out/check_$pid.txt; fi
-  fi
-fi
-if [ -z "$hits" ] || { ! grep -q "^VIOLATION" $out/check_$pid.txt && grep -q "no obligation was generated" $out/check_$pid.txt; }; then
-  (cd $V && python3 check.py $pid --tier $tier > $out/check_$pid.txt 2>$out/check_$pid.err; echo "exit=$? (tier $tier, full check; native sweep flagged nothing the restricted runs could decide)" >> $out/check_$pid.txt)
-fi
-bif [ -n "$hits" ]; then
-  (cd $V && VERIF_ONLY="$hits" python3 check.py $pid --tier $tier > $out/check_$pid.txt 2>$out/check_$pid.err; echo "exit=$? (tier $tier, restricted to the harnesses the native sweep flagged: $hits)" >> $out/check_$pid.txt)
-  if ! grep -q "^VIOLATION" $out/check_$pid.txt && [ "$tier" = quick ]; then
-    # the flagged harnesses may belong to the thorough tier only (larger bounds, slow ones)
-    (cd $V && VERIF_ONLY="$hits" python3 check.py $pid --tier thorough > $out/check_${pid}_thorough.txt 2>$out/check_${pid}_thorough.err; echo "exit=$? (tier thorough, restricted to the harnesses the native sweep flagged: $hits)" >> $out/check_${pid}_thorough.txt)
-    if grep -q "^VIOLATION" $out/check_${pid}_thorough.txt; then cp $out/check_${pid}_thorough.txt $out/check_$pid.txt; fi
-  fi
-fi
-if [ -z "$hits" ] || { ! grep -q "^VIOLATION" $out/check_$pid.txt && grep -q "no obligation was generated" $out/check_$pid.txt; }; then
-  (cd $V && python3 check.py $pid --tier $tier > $out/check_$pid.txt 2>$out/check_$pid.err; echo "exit=$? (tier $tier, full check; native sweep flagged nothing the restricted runs could decide)" >> $out/check_$pid.txt)
-fi
-aif [ -n "$hits" ]; then
-  (cd $V && VERIF_ONLY="$hits" python3 check.py $pid --tier $tier > $out/check_$pid.txt 2>$out/check_$pid.err; echo "exit=$? (tier $tier, restricted to the harnesses the native sweep flagged: $hits)" >> $out/check_$pid.txt)
-  if ! grep -q "^VIOLATION" $out/check_$pid.txt && [ "$tier" = quick ]; then
-    # the flagged harnesses may belong to the thorough tier only (larger bounds, slow ones)
-    (cd $V && VERIF_ONLY="$hits" python3 check.py $pid --tier thorough > $out/check_${pid}_thorough.txt 2>$out/check_${pid}_thorough.err; echo "exit=$? (tier thorough, restricted to the harnesses the native sweep flagged: $hits)" >> $out/check_${pid}_thorough.txt)
-    if grep -q "^VIOLATION" $out/check_${pid}_thorough.txt; then cp $out/check_${pid}_thorough.txt $out/check_$pid.txt; fi
-  fi
-fi
-if [ -z "$hits" ] || { ! grep -q "^VIOLATION" $out/check_$pid.txt && grep -q "no obligation was generated" $out/check_$pid.txt; }; then
-  (cd $V && python3 check.py $pid --tier $tier > $out/check_$pid.txt 2>$out/check_$pid.err; echo "exit=$? (tier $tier, full check; native sweep flagged nothing the restricted runs could decide)" >> $out/check_$pid.txt)
-fi
-sif [ -n "$hits" ]; then
-  (cd $V && VERIF_ONLY="$hits" python3 check.py $pid --tier $tier > $out/check_$pid.txt 2>$out/check_$pid.err; echo "exit=$? (tier $tier, restricted to the harnesses the native sweep flagged: $hits)" >> $out/check_$pid.txt)
-  if ! grep -q "^VIOLATION" $out/check_$pid.txt && [ "$tier" = quick ]; then
-    # the flagged harnesses may belong to the thorough tier only (larger bounds, slow ones)
-    (cd $V && VERIF_ONLY="$hits" python3 check.py $pid --tier thorough > $out/check_${pid}_thorough.txt 2>$out/check_${pid}_thorough.err; echo "exit=$? (tier thorough, restricted to the harnesses the native sweep flagged: $hits)" >> $out/check_${pid}_thorough.txt)
-    if grep -q "^VIOLATION" $out/check_${pid}_thorough.txt; then cp $out/check_${pid}_thorough.txt $out/check_$pid.txt; fi
-  fi
-fi
-if [ -z "$hits" ] || { ! grep -q "^VIOLATION" $out/check_$pid.txt && grep -q "no obligation was generated" $out/check_$pid.txt; }; then
-  (cd $V && python3 check.py $pid --tier $tier > $out/check_$pid.txt 2>$out/check_$pid.err; echo "exit=$? (tier $tier, full check; native sweep flagged nothing the restricted runs could decide)" >> $out/check_$pid.txt)
-fi
-eif [ -n "$hits" ]; then
-  (cd $V && VERIF_ONLY="$hits" python3 check.py $pid --tier $tier > $out/check_$pid.txt 2>$out/check_$pid.err; echo "exit=$? (tier $tier, restricted to the harnesses the native sweep flagged: $hits)" >> $out/check_$pid.txt)
-  if ! grep -q "^VIOLATION" $out/check_$pid.txt && [ "$tier" = quick ]; then
-    # the flagged harnesses may belong to the thorough tier only (larger bounds, slow ones)
-    (cd $V && VERIF_ONLY="$hits" python3 check.py $pid --tier thorough > $out/check_${pid}_thorough.txt 2>$out/check_${pid}_thorough.err; echo "exit=$? (tier thorough, restricted to the harnesses the native sweep flagged: $hits)" >> $out/check_${pid}_thorough.txt)
-    if grep -q "^VIOLATION" $out/check_${pid}_thorough.txt; then cp $out/check_${pid}_thorough.txt $out/check_$pid.txt; fi
-  fi
-fi
-if [ -z "$hits" ] || { ! grep -q "^VIOLATION" $out/check_$pid.txt && grep -q "no obligation was generated" $out/check_$pid.txt; }; then
-  (cd $V && python3 check.py $pid --tier $tier > $out/check_$pid.txt 2>$out/check_$pid.err; echo "exit=$? (tier $tier, full check; native sweep flagged nothing the restricted runs could decide)" >> $out/check_$pid.txt)
-fi
- if [ -n "$hits" ]; then
-  (cd $V && VERIF_ONLY="$hits" python3 check.py $pid --tier $tier > $out/check_$pid.txt 2>$out/check_$pid.err; echo "exit=$? (tier $tier, restricted to the harnesses the native sweep flagged: $hits)" >> $out/check_$pid.txt)
-  if ! grep -q "^VIOLATION" $out/check_$pid.txt && [ "$tier" = quick ]; then
-    # the flagged harnesses may belong to the thorough tier only (larger bounds, slow ones)
-    (cd $V && VERIF_ONLY="$hits" python3 check.py $pid --tier thorough > $out/check_${pid}_thorough.txt 2>$out/check_${pid}_thorough.err; echo "exit=$? (tier thorough, restricted to the harnesses the native sweep flagged: $hits)" >> $out/check_${pid}_thorough.txt)
-    if grep -q "^VIOLATION" $out/check_${pid}_thorough.txt; then cp $out/check_${pid}_thorough.txt $out/check_$pid.txt; fi
-  fi
-fi
-if [ -z "$hits" ] || { ! grep -q "^VIOLATION" $out/check_$pid.txt && grep -q "no obligation was generated" $out/check_$pid.txt; }; then
-  (cd $V && python3 check.py $pid --tier $tier > $out/check_$pid.txt 2>$out/check_$pid.err; echo "exit=$? (tier $tier, full check; native sweep flagged nothing the restricted runs could decide)" >> $out/check_$pid.txt)
-fi
-pif [ -n "$hits" ]; then
-  (cd $V && VERIF_ONLY="$hits" python3 check.py $pid --tier $tier > $out/check_$pid.txt 2>$out/check_$pid.err; echo "exit=$? (tier $tier, restricted to the harnesses the native sweep flagged: $hits)" >> $out/check_$pid.txt)
-  if ! grep -q "^VIOLATION" $out/check_$pid.txt && [ "$tier" = quick ]; then
-    # the flagged harnesses may belong to the thorough tier only (larger bounds, slow ones)
-    (cd $V && VERIF_ONLY="$hits" python3 check.py $pid --tier thorough > $out/check_${pid}_thorough.txt 2>$out/check_${pid}_thorough.err; echo "exit=$? (tier thorough, restricted to the harnesses the native sweep flagged: $hits)" >> $out/check_${pid}_thorough.txt)
-    if grep -q "^VIOLATION" $out/check_${pid}_thorough.txt; then cp $out/check_${pid}_thorough.txt $out/check_$pid.txt; fi
-  fi
-fi
-if [ -z "$hits" ] || { ! grep -q "^VIOLATION" $out/check_$pid.txt && grep -q "no obligation was generated" $out/check_$pid.txt; }; then
-  (cd $V && python3 check.py $pid --tier $tier > $out/check_$pid.txt 2>$out/check_$pid.err; echo "exit=$? (tier $tier, full check; native sweep flagged nothing the restricted runs could decide)" >> $out/check_$pid.txt)
-fi
-yif [ -n "$hits" ]; then
-  (cd $V && VERIF_ONLY="$hits" python3 check.py $pid --tier $tier > $out/check_$pid.txt 2>$out/check_$pid.err; echo "exit=$? (tier $tier, restricted to the harnesses the native sweep flagged: $hits)" >> $out/check_$pid.txt)
-  if ! grep -q "^VIOLATION" $out/check_$pid.txt && [ "$tier" = quick ]; then
-    # the flagged harnesses may belong to the thorough tier only (larger bounds, slow ones)
-    (cd $V && VERIF_ONLY="$hits" python3 check.py $pid --tier thorough > $out/check_${pid}_thorough.txt 2>$out/check_${pid}_thorough.err; echo "exit=$? (tier thorough, restricted to the harnesses the native sweep flagged: $hits)" >> $out/check_${pid}_thorough.txt)
-    if grep -q "^VIOLATION" $out/check_${pid}_thorough.txt; then cp $out/check_${pid}_thorough.txt $out/check_$pid.txt; fi
-  fi
-fi
-if [ -z "$hits" ] || { ! grep -q "^VIOLATION" $out/check_$pid.txt && grep -q "no obligation was generated" $out/check_$pid.txt; }; then
-  (cd $V && python3 check.py $pid --tier $tier > $out/check_$pid.txt 2>$out/check_$pid.err; echo "exit=$? (tier $tier, full check; native sweep flagged nothing the restricted runs could decide)" >> $out/check_$pid.txt)
-fi
-tif [ -n "$hits" ]; then
-  (cd $V && VERIF_ONLY="$hits" python3 check.py $pid --tier $tier > $out/check_$pid.txt 2>$out/check_$pid.err; echo "exit=$? (tier $tier, restricted to the harnesses the native sweep flagged: $hits)" >> $out/check_$pid.txt)
-  if ! grep -q "^VIOLATION" $out/check_$pid.txt && [ "$tier" = quick ]; then
-    # the flagged harnesses may belong to the thorough tier only (larger bounds, slow ones)
-    (cd $V && VERIF_ONLY="$hits" python3 check.py $pid --tier thorough > $out/check_${pid}_thorough.txt 2>$out/check_${pid}_thorough.err; echo "exit=$? (tier thorough, restricted to the harnesses the native sweep flagged: $hits)" >> $out/check_${pid}_thorough.txt)
-    if grep -q "^VIOLATION" $out/check_${pid}_thorough.txt; then cp $out/check_${pid}_thorough.txt $out/check_$pid.txt; fi
-  fi
-fi
-if [ -z "$hits" ] || { ! grep -q "^VIOLATION" $out/check_$pid.txt && grep -q "no obligation was generated" $out/check_$pid.txt; }; then
-  (cd $V && python3 check.py $pid --tier $tier > $out/check_$pid.txt 2>$out/check_$pid.err; echo "exit=$? (tier $tier, full check; native sweep flagged nothing the restricted runs could decide)" >> $out/check_$pid.txt)
-fi
-hif [ -n "$hits" ]; then
-  (cd $V && VERIF_ONLY="$hits" python3 check.py $pid --tier $tier > $out/check_$pid.txt 2>$out/check_$pid.err; echo "exit=$? (tier $tier, restricted to the harnesses the native sweep flagged: $hits)" >> $out/check_$pid.txt)
-  if ! grep -q "^VIOLATION" $out/check_$pid.txt && [ "$tier" = quick ]; then
-    # the flagged harnesses may belong to the thorough tier only (larger bounds, slow ones)
-    (cd $V && VERIF_ONLY="$hits" python3 check.py $pid --tier thorough > $out/check_${pid}_thorough.txt 2>$out/check_${pid}_thorough.err; echo "exit=$? (tier thorough, restricted to the harnesses the native sweep flagged: $hits)" >> $out/check_${pid}_thorough.txt)
-    if grep -q "^VIOLATION" $out/check_${pid}_thorough.txt; then cp $out/check_${pid}_thorough.txt $out/check_$pid.txt; fi
-  fi
-fi
-if [ -z "$hits" ] || { ! grep -q "^VIOLATION" $out/check_$pid.txt && grep -q "no obligation was generated" $out/check_$pid.txt; }; then
-  (cd $V && python3 check.py $pid --tier $tier > $out/check_$pid.txt 2>$out/check_$pid.err; echo "exit=$? (tier $tier, full check; native sweep flagged nothing the restricted runs could decide)" >> $out/check_$pid.txt)
-fi
-oif [ -n "$hits" ]; then
-  (cd $V && VERIF_ONLY="$hits" python3 check.py $pid --tier $tier > $out/check_$pid.txt 2>$out/check_$pid.err; echo "exit=$? (tier $tier, restricted to the harnesses the native sweep flagged: $hits)" >> $out/check_$pid.txt)
-  if ! grep -q "^VIOLATION" $out/check_$pid.txt && [ "$tier" = quick ]; then
-    # the flagged harnesses may belong to the thorough tier only (larger bounds, slow ones)
-    (cd $V && VERIF_ONLY="$hits" python3 check.py $pid --tier thorough > $out/check_${pid}_thorough.txt 2>$out/check_${pid}_thorough.err; echo "exit=$? (tier thorough, restricted to the harnesses the native sweep flagged: $hits)" >> $out/check_${pid}_thorough.txt)
-    if grep -q "^VIOLATION" $out/check_${pid}_thorough.txt; then cp $out/check_${pid}_thorough.txt $out/check_$pid.txt; fi
-  fi
-fi
-if [ -z "$hits" ] || { ! grep -q "^VIOLATION" $out/check_$pid.txt && grep -q "no obligation was generated" $out/check_$pid.txt; }; then
-  (cd $V && python3 check.py $pid --tier $tier > $out/check_$pid.txt 2>$out/check_$pid.err; echo "exit=$? (tier $tier, full check; native sweep flagged nothing the restricted runs could decide)" >> $out/check_$pid.txt)
-fi
-nif [ -n "$hits" ]; then
-  (cd $V && VERIF_ONLY="$hits" python3 check.py $pid --tier $tier > $out/check_$pid.txt 2>$out/check_$pid.err; echo "exit=$? (tier $tier, restricted to the harnesses the native sweep flagged: $hits)" >> $out/check_$pid.txt)
-  if ! grep -q "^VIOLATION" $out/check_$pid.txt && [ "$tier" = quick ]; then
-    # the flagged harnesses may belong to the thorough tier only (larger bounds, slow ones)
-    (cd $V && VERIF_ONLY="$hits" python3 check.py $pid --tier thorough > $out/check_${pid}_thorough.txt 2>$out/check_${pid}_thorough.err; echo "exit=$? (tier thorough, restricted to the harnesses the native sweep flagged: $hits)" >> $out/check_${pid}_thorough.txt)
-    if grep -q "^VIOLATION" $out/check_${pid}_thorough.txt; then cp $out/check_${pid}_thorough.txt $out/check_$pid.txt; fi
-  fi
-fi
-if [ -z "$hits" ] || { ! grep -q "^VIOLATION" $out/check_$pid.txt && grep -q "no obligation was generated" $out/check_$pid.txt; }; then
-  (cd $V && python3 check.py $pid --tier $tier > $out/check_$pid.txt 2>$out/check_$pid.err; echo "exit=$? (tier $tier, full check; native sweep flagged nothing the restricted runs could decide)" >> $out/check_$pid.txt)
-fi
-3if [ -n "$hits" ]; then
-  (cd $V && VERIF_ONLY="$hits" python3 check.py $pid --tier $tier > $out/check_$pid.txt 2>$out/check_$pid.err; echo "exit=$? (tier $tier, restricted to the harnesses the native sweep flagged: $hits)" >> $out/check_$pid.txt)
-  if ! grep -q "^VIOLATION" $out/check_$pid.txt && [ "$tier" = quick ]; then
-    # the flagged harnesses may belong to the thorough tier only (larger bounds, slow ones)
-    (cd $V && VERIF_ONLY="$hits" python3 check.py $pid --tier thorough > $out/check_${pid}_thorough.txt 2>$out/check_${pid}_thorough.err; echo "exit=$? (tier thorough, restricted to the harnesses the native sweep flagged: $hits)" >> $out/check_${pid}_thorough.txt)
-    if grep -q "^VIOLATION" $out/check_${pid}_thorough.txt; then cp $out/check_${pid}_thorough.txt $out/check_$pid.txt; fi
-  fi
-fi
-if [ -z "$hits" ] || { ! grep -q "^VIOLATION" $out/check_$pid.txt && grep -q "no obligation was generated" $out/check_$pid.txt; }; then
-  (cd $V && python3 check.py $pid --tier $tier > $out/check_$pid.txt 2>$out/check_$pid.err; echo "exit=$? (tier $tier, full check; native sweep flagged nothing the restricted runs could decide)" >> $out/check_$pid.txt)
-fi
- if [ -n "$hits" ]; then
-  (cd $V && VERIF_ONLY="$hits" python3 check.py $pid --tier $tier > $out/check_$pid.txt 2>$out/check_$pid.err; echo "exit=$? (tier $tier, restricted to the harnesses the native sweep flagged: $hits)" >> $out/check_$pid.txt)
-  if ! grep -q "^VIOLATION" $out/check_$pid.txt && [ "$tier" = quick ]; then
-    # the flagged harnesses may belong to the thorough tier only (larger bounds, slow ones)
-    (cd $V && VERIF_ONLY="$hits" python3 check.py $pid --tier thorough > $out/check_${pid}_thorough.txt 2>$out/check_${pid}_thorough.err; echo "exit=$? (tier thorough, restricted to the harnesses the native sweep flagged: $hits)" >> $out/check_${pid}_thorough.txt)
-    if grep -q "^VIOLATION" $out/check_${pid}_thorough.txt; then cp $out/check_${pid}_thorough.txt $out/check_$pid.txt; fi
-  fi
-fi
-if [ -z "$hits" ] || { ! grep -q "^VIOLATION" $out/check_$pid.txt && grep -q "no obligation was generated" $out/check_$pid.txt; }; then
-  (cd $V && python3 check.py $pid --tier $tier > $out/check_$pid.txt 2>$out/check_$pid.err; echo "exit=$? (tier $tier, full check; native sweep flagged nothing the restricted runs could decide)" >> $out/check_$pid.txt)
-fi
-cif [ -n "$hits" ]; then
-  (cd $V && VERIF_ONLY="$hits" python3 check.py $pid --tier $tier > $out/check_$pid.txt 2>$out/check_$pid.err; echo "exit=$? (tier $tier, restricted to the harnesses the native sweep flagged: $hits)" >> $out/check_$pid.txt)
-  if ! grep -q "^VIOLATION" $out/check_$pid.txt && [ "$tier" = quick ]; then
-    # the flagged harnesses may belong to the thorough tier only (larger bounds, slow ones)
-    (cd $V && VERIF_ONLY="$hits" python3 check.py $pid --tier thorough > $out/check_${pid}_thorough.txt 2>$out/check_${pid}_thorough.err; echo "exit=$? (tier thorough, restricted to the harnesses the native sweep flagged: $hits)" >> $out/check_${pid}_thorough.txt)
-    if grep -q "^VIOLATION" $out/check_${pid}_thorough.txt; then cp $out/check_${pid}_thorough.txt $out/check_$pid.txt; fi
-  fi
-fi
-if [ -z "$hits" ] || { ! grep -q "^VIOLATION" $out/check_$pid.txt && grep -q "no obligation was generated" $out/check_$pid.txt; }; then
-  (cd $V && python3 check.py $pid --tier $tier > $out/check_$pid.txt 2>$out/check_$pid.err; echo "exit=$? (tier $tier, full check; native sweep flagged nothing the restricted runs could decide)" >> $out/check_$pid.txt)
-fi
-hif [ -n "$hits" ]; then
-  (cd $V && VERIF_ONLY="$hits" python3 check.py $pid --tier $tier > $out/check_$pid.txt 2>$out/check_$pid.err; echo "exit=$? (tier $tier, restricted to the harnesses the native sweep flagged: $hits)" >> $out/check_$pid.txt)
-  if ! grep -q "^VIOLATION" $out/check_$pid.txt && [ "$tier" = quick ]; then
-    # the flagged harnesses may belong to the thorough tier only (larger bounds, slow ones)
-    (cd $V && VERIF_ONLY="$hits" python3 check.py $pid --tier thorough > $out/check_${pid}_thorough.txt 2>$out/check_${pid}_thorough.err; echo "exit=$? (tier thorough, restricted to the harnesses the native sweep flagged: $hits)" >> $out/check_${pid}_thorough.txt)
-    if grep -q "^VIOLATION" $out/check_${pid}_thorough.txt; then cp $out/check_${pid}_thorough.txt $out/check_$pid.txt; fi
-  fi
-fi
-if [ -z "$hits" ] || { ! grep -q "^VIOLATION" $out/check_$pid.txt && grep -q "no obligation was generated" $out/check_$pid.txt; }; then
-  (cd $V && python3 check.py $pid --tier $tier > $out/check_$pid.txt 2>$out/check_$pid.err; echo "exit=$? (tier $tier, full check; native sweep flagged nothing the restricted runs could decide)" >> $out/check_$pid.txt)
-fi
-eif [ -n "$hits" ]; then
-  (cd $V && VERIF_ONLY="$hits" python3 check.py $pid --tier $tier > $out/check_$pid.txt 2>$out/check_$pid.err; echo "exit=$? (tier $tier, restricted to the harnesses the native sweep flagged: $hits)" >> $out/check_$pid.txt)
-  if ! grep -q "^VIOLATION" $out/check_$pid.txt && [ "$tier" = quick ]; then
-    # the flagged harnesses may belong to the thorough tier only (larger bounds, slow ones)
-    (cd $V && VERIF_ONLY="$hits" python3 check.py $pid --tier thorough > $out/check_${pid}_thorough.txt 2>$out/check_${pid}_thorough.err; echo "exit=$? (tier thorough, restricted to the harnesses the native sweep flagged: $hits)" >> $out/check_${pid}_thorough.txt)
-    if grep -q "^VIOLATION" $out/check_${pid}_thorough.txt; then cp $out/check_${pid}_thorough.txt $out/check_$pid.txt; fi
-  fi
-fi
-if [ -z "$hits" ] || { ! grep -q "^VIOLATION" $out/check_$pid.txt && grep -q "no obligation was generated" $out/check_$pid.txt; }; then
-  (cd $V && python3 check.py $pid --tier $tier > $out/check_$pid.txt 2>$out/check_$pid.err; echo "exit=$? (tier $tier, full check; native sweep flagged nothing the restricted runs could decide)" >> $out/check_$pid.txt)
-fi
-cif [ -n "$hits" ]; then
-  (cd $V && VERIF_ONLY="$hits" python3 check.py $pid --tier $tier > $out/check_$pid.txt 2>$out/check_$pid.err; echo "exit=$? (tier $tier, restricted to the harnesses the native sweep flagged: $hits)" >> $out/check_$pid.txt)
-  if ! grep -q "^VIOLATION" $out/check_$pid.txt && [ "$tier" = quick ]; then
-    # the flagged harnesses may belong to the thorough tier only (larger bounds, slow ones)
-    (cd $V && VERIF_ONLY="$hits" python3 check.py $pid --tier thorough > $out/check_${pid}_thorough.txt 2>$out/check_${pid}_thorough.err; echo "exit=$? (tier thorough, restricted to the harnesses the native sweep flagged: $hits)" >> $out/check_${pid}_thorough.txt)
-    if grep -q "^VIOLATION" $out/check_${pid}_thorough.txt; then cp $out/check_${pid}_thorough.txt $out/check_$pid.txt; fi
-  fi
-fi
-if [ -z "$hits" ] || { ! grep -q "^VIOLATION" $out/check_$pid.txt && grep -q "no obligation was generated" $out/check_$pid.txt; }; then
-  (cd $V && python3 check.py $pid --tier $tier > $out/check_$pid.txt 2>$out/check_$pid.err; echo "exit=$? (tier $tier, full check; native sweep flagged nothing the restricted runs could decide)" >> $out/check_$pid.txt)
-fi
-kif [ -n "$hits" ]; then
-  (cd $V && VERIF_ONLY="$hits" python3 check.py $pid --tier $tier > $out/check_$pid.txt 2>$out/check_$pid.err; echo "exit=$? (tier $tier, restricted to the harnesses the native sweep flagged: $hits)" >> $out/check_$pid.txt)
-  if ! grep -q "^VIOLATION" $out/check_$pid.txt && [ "$tier" = quick ]; then
-    # the flagged harnesses may belong to the thorough tier only (larger bounds, slow ones)
-    (cd $V && VERIF_ONLY="$hits" python3 check.py $pid --tier thorough > $out/check_${pid}_thorough.txt 2>$out/check_${pid}_thorough.err; echo "exit=$? (tier thorough, restricted to the harnesses the native sweep flagged: $hits)" >> $out/check_${pid}_thorough.txt)
-    if grep -q "^VIOLATION" $out/check_${pid}_thorough.txt; then cp $out/check_${pid}_thorough.txt $out/check_$pid.txt; fi
-  fi
-fi
-if [ -z "$hits" ] || { ! grep -q "^VIOLATION" $out/check_$pid.txt && grep -q "no obligation was generated" $out/check_$pid.txt; }; then
-  (cd $V && python3 check.py $pid --tier $tier > $out/check_$pid.txt 2>$out/check_$pid.err; echo "exit=$? (tier $tier, full check; native sweep flagged nothing the restricted runs could decide)" >> $out/check_$pid.txt)
-fi
-.if [ -n "$hits" ]; then
-  (cd $V && VERIF_ONLY="$hits" python3 check.py $pid --tier $tier > $out/check_$pid.txt 2>$out/check_$pid.err; echo "exit=$? (tier $tier, restricted to the harnesses the native sweep flagged: $hits)" >> $out/check_$pid.txt)
-  if ! grep -q "^VIOLATION" $out/check_$pid.txt && [ "$tier" = quick ]; then
-    # the flagged harnesses may belong to the thorough tier only (larger bounds, slow ones)
-    (cd $V && VERIF_ONLY="$hits" python3 check.py $pid --tier thorough > $out/check_${pid}_thorough.txt 2>$out/check_${pid}_thorough.err; echo "exit=$? (tier thorough, restricted to the harnesses the native sweep flagged: $hits)" >> $out/check_${pid}_thorough.txt)
-    if grep -q "^VIOLATION" $out/check_${pid}_thorough.txt; then cp $out/check_${pid}_thorough.txt $out/check_$pid.txt; fi
-  fi
-fi
-if [ -z "$hits" ] || { ! grep -q "^VIOLATION" $out/check_$pid.txt && grep -q "no obligation was generated" $out/check_$pid.txt; }; then
-  (cd $V && python3 check.py $pid --tier $tier > $out/check_$pid.txt 2>$out/check_$pid.err; echo "exit=$? (tier $tier, full check; native sweep flagged nothing the restricted runs could decide)" >> $out/check_$pid.txt)
-fi
-pif [ -n "$hits" ]; then
-  (cd $V && VERIF_ONLY="$hits" python3 check.py $pid --tier $tier > $out/check_$pid.txt 2>$out/check_$pid.err; echo "exit=$? (tier $tier, restricted to the harnesses the native sweep flagged: $hits)" >> $out/check_$pid.txt)
-  if ! grep -q "^VIOLATION" $out/check_$pid.txt && [ "$tier" = quick ]; then
-    # the flagged harnesses may belong to the thorough tier only (larger bounds, slow ones)
-    (cd $V && VERIF_ONLY="$hits" python3 check.py $pid --tier thorough > $out/check_${pid}_thorough.txt 2>$out/check_${pid}_thorough.err; echo "exit=$? (tier thorough, restricted to the harnesses the native sweep flagged: $hits)" >> $out/check_${pid}_thorough.txt)
-    if grep -q "^VIOLATION" $out/check_${pid}_thorough.txt; then cp $out/check_${pid}_thorough.txt $out/check_$pid.txt; fi
-  fi
-fi
-if [ -z "$hits" ] || { ! grep -q "^VIOLATION" $out/check_$pid.txt && grep -q "no obligation was generated" $out/check_$pid.txt; }; then
-  (cd $V && python3 check.py $pid --tier $tier > $out/check_$pid.txt 2>$out/check_$pid.err; echo "exit=$? (tier $tier, full check; native sweep flagged nothing the restricted runs could decide)" >> $out/check_$pid.txt)
-fi
-yif [ -n "$hits" ]; then
-  (cd $V && VERIF_ONLY="$hits" python3 check.py $pid --tier $tier > $out/check_$pid.txt 2>$out/check_$pid.err; echo "exit=$? (tier $tier, restricted to the harnesses the native sweep flagged: $hits)" >> $out/check_$pid.txt)
-  if ! grep -q "^VIOLATION" $out/check_$pid.txt && [ "$tier" = quick ]; then
-    # the flagged harnesses may belong to the thorough tier only (larger bounds, slow ones)
-    (cd $V && VERIF_ONLY="$hits" python3 check.py $pid --tier thorough > $out/check_${pid}_thorough.txt 2>$out/check_${pid}_thorough.err; echo "exit=$? (tier thorough, restricted to the harnesses the native sweep flagged: $hits)" >> $out/check_${pid}_thorough.txt)
-    if grep -q "^VIOLATION" $out/check_${pid}_thorough.txt; then cp $out/check_${pid}_thorough.txt $out/check_$pid.txt; fi
-  fi
-fi
-if [ -z "$hits" ] || { ! grep -q "^VIOLATION" $out/check_$pid.txt && grep -q "no obligation was generated" $out/check_$pid.txt; }; then
-  (cd $V && python3 check.py $pid --tier $tier > $out/check_$pid.txt 2>$out/check_$pid.err; echo "exit=$? (tier $tier, full check; native sweep flagged nothing the restricted runs could decide)" >> $out/check_$pid.txt)
-fi
- if [ -n "$hits" ]; then
-  (cd $V && VERIF_ONLY="$hits" python3 check.py $pid --tier $tier > $out/check_$pid.txt 2>$out/check_$pid.err; echo "exit=$? (tier $tier, restricted to the harnesses the native sweep flagged: $hits)" >> $out/check_$pid.txt)
-  if ! grep -q "^VIOLATION" $out/check_$pid.txt && [ "$tier" = quick ]; then
-    # the flagged harnesses may belong to the thorough tier only (larger bounds, slow ones)
-    (cd $V && VERIF_ONLY="$hits" python3 check.py $pid --tier thorough > $out/check_${pid}_thorough.txt 2>$out/check_${pid}_thorough.err; echo "exit=$? (tier thorough, restricted to the harnesses the native sweep flagged: $hits)" >> $out/check_${pid}_thorough.txt)
-    if grep -q "^VIOLATION" $out/check_${pid}_thorough.txt; then cp $out/check_${pid}_thorough.txt $out/check_$pid.txt; fi
-  fi
-fi
-if [ -z "$hits" ] || { ! grep -q "^VIOLATION" $out/check_$pid.txt && grep -q "no obligation was generated" $out/check_$pid.txt; }; then
-  (cd $V && python3 check.py $pid --tier $tier > $out/check_$pid.txt 2>$out/check_$pid.err; echo "exit=$? (tier $tier, full check; native sweep flagged nothing the restricted runs could decide)" >> $out/check_$pid.txt)
-fi
--if [ -n "$hits" ]; then
-  (cd $V && VERIF_ONLY="$hits" python3 check.py $pid --tier $tier > $out/check_$pid.txt 2>$out/check_$pid.err; echo "exit=$? (tier $tier, restricted to the harnesses the native sweep flagged: $hits)" >> $out/check_$pid.txt)
-  if ! grep -q "^VIOLATION" $out/check_$pid.txt && [ "$tier" = quick ]; then
-    # the flagged harnesses may belong to the thorough tier only (larger bounds, slow ones)
-    (cd $V && VERIF_ONLY="$hits" python3 check.py $pid --tier thorough > $out/check_${pid}_thorough.txt 2>$out/check_${pid}_thorough.err; echo "exit=$? (tier thorough, restricted to the harnesses the native sweep flagged: $hits)" >> $out/check_${pid}_thorough.txt)
-    if grep -q "^VIOLATION" $out/check_${pid}_thorough.txt; then cp $out/check_${pid}_thorough.txt $out/check_$pid.txt; fi
-  fi
-fi
-if [ -z "$hits" ] || { ! grep -q "^VIOLATION" $out/check_$pid.txt && grep -q "no obligation was generated" $out/check_$pid.txt; }; then
-  (cd $V && python3 check.py $pid --tier $tier > $out/check_$pid.txt 2>$out/check_$pid.err; echo "exit=$? (tier $tier, full check; native sweep flagged nothing the restricted runs could decide)" >> $out/check_$pid.txt)
-fi
--if [ -n "$hits" ]; then
-  (cd $V && VERIF_ONLY="$hits" python3 check.py $pid --tier $tier > $out/check_$pid.txt 2>$out/check_$pid.err; echo "exit=$? (tier $tier, restricted to the harnesses the native sweep flagged: $hits)" >> $out/check_$pid.txt)
-  if ! grep -q "^VIOLATION" $out/check_$pid.txt && [ "$tier" = quick ]; then
-    # the flagged harnesses may belong to the thorough tier only (larger bounds, slow ones)
-    (cd $V && VERIF_ONLY="$hits" python3 check.py $pid --tier thorough > $out/check_${pid}_thorough.txt 2>$out/check_${pid}_thorough.err; echo "exit=$? (tier thorough, restricted to the harnesses the native sweep flagged: $hits)" >> $out/check_${pid}_thorough.txt)
-    if grep -q "^VIOLATION" $out/check_${pid}_thorough.txt; then cp $out/check_${pid}_thorough.txt $out/check_$pid.txt; fi
-  fi
-fi
-if [ -z "$hits" ] || { ! grep -q "^VIOLATION" $out/check_$pid.txt && grep -q "no obligation was generated" $out/check_$pid.txt; }; then
-  (cd $V && python3 check.py $pid --tier $tier > $out/check_$pid.txt 2>$out/check_$pid.err; echo "exit=$? (tier $tier, full check; native sweep flagged nothing the restricted runs could decide)" >> $out/check_$pid.txt)
-fi
-sif [ -n "$hits" ]; then
-  (cd $V && VERIF_ONLY="$hits" python3 check.py $pid --tier $tier > $out/check_$pid.txt 2>$out/check_$pid.err; echo "exit=$? (tier $tier, restricted to the harnesses the native sweep flagged: $hits)" >> $out/check_$pid.txt)
-  if ! grep -q "^VIOLATION" $out/check_$pid.txt && [ "$tier" = quick ]; then
-    # the flagged harnesses may belong to the thorough tier only (larger bounds, slow ones)
-    (cd $V && VERIF_ONLY="$hits" python3 check.py $pid --tier thorough > $out/check_${pid}_thorough.txt 2>$out/check_${pid}_thorough.err; echo "exit=$? (tier thorough, restricted to the harnesses the native sweep flagged: $hits)" >> $out/check_${pid}_thorough.txt)
-    if grep -q "^VIOLATION" $out/check_${pid}_thorough.txt; then cp $out/check_${pid}_thorough.txt $out/check_$pid.txt; fi
-  fi
-fi
-if [ -z "$hits" ] || { ! grep -q "^VIOLATION" $out/check_$pid.txt && grep -q "no obligation was generated" $out/check_$pid.txt; }; then
-  (cd $V && python3 check.py $pid --tier $tier > $out/check_$pid.txt 2>$out/check_$pid.err; echo "exit=$? (tier $tier, full check; native sweep flagged nothing the restricted runs could decide)" >> $out/check_$pid.txt)
-fi
-wif [ -n "$hits" ]; then
-  (cd $V && VERIF_ONLY="$hits" python3 check.py $pid --tier $tier > $out/check_$pid.txt 2>$out/check_$pid.err; echo "exit=$? (tier $tier, restricted to the harnesses the native sweep flagged: $hits)" >> $out/check_$pid.txt)
-  if ! grep -q "^VIOLATION" $out/check_$pid.txt && [ "$tier" = quick ]; then
-    # the flagged harnesses may belong to the thorough tier only (larger bounds, slow ones)
-    (cd $V && VERIF_ONLY="$hits" python3 check.py $pid --tier thorough > $out/check_${pid}_thorough.txt 2>$out/check_${pid}_thorough.err; echo "exit=$? (tier thorough, restricted to the harnesses the native sweep flagged: $hits)" >> $out/check_${pid}_thorough.txt)
-    if grep -q "^VIOLATION" $out/check_${pid}_thorough.txt; then cp $out/check_${pid}_thorough.txt $out/check_$pid.txt; fi
-  fi
-fi
-if [ -z "$hits" ] || { ! grep -q "^VIOLATION" $out/check_$pid.txt && grep -q "no obligation was generated" $out/check_$pid.txt; }; then
-  (cd $V && python3 check.py $pid --tier $tier > $out/check_$pid.txt 2>$out/check_$pid.err; echo "exit=$? (tier $tier, full check; native sweep flagged nothing the restricted runs could decide)" >> $out/check_$pid.txt)
-fi
-eif [ -n "$hits" ]; then
-  (cd $V && VERIF_ONLY="$hits" python3 check.py $pid --tier $tier > $out/check_$pid.txt 2>$out/check_$pid.err; echo "exit=$? (tier $tier, restricted to the harnesses the native sweep flagged: $hits)" >> $out/check_$pid.txt)
-  if ! grep -q "^VIOLATION" $out/check_$pid.txt && [ "$tier" = quick ]; then
-    # the flagged harnesses may belong to the thorough tier only (larger bounds, slow ones)
-    (cd $V && VERIF_ONLY="$hits" python3 check.py $pid --tier thorough > $out/check_${pid}_thorough.txt 2>$out/check_${pid}_thorough.err; echo "exit=$? (tier thorough, restricted to the harnesses the native sweep flagged: $hits)" >> $out/check_${pid}_thorough.txt)
-    if grep -q "^VIOLATION" $out/check_${pid}_thorough.txt; then cp $out/check_${pid}_thorough.txt $out/check_$pid.txt; fi
-  fi
-fi
-if [ -z "$hits" ] || { ! grep -q "^VIOLATION" $out/check_$pid.txt && grep -q "no obligation was generated" $out/check_$pid.txt; }; then
-  (cd $V && python3 check.py $pid --tier $tier > $out/check_$pid.txt 2>$out/check_$pid.err; echo "exit=$? (tier $tier, full check; native sweep flagged nothing the restricted runs could decide)" >> $out/check_$pid.txt)
-fi
-eif [ -n "$hits" ]; then
-  (cd $V && VERIF_ONLY="$hits" python3 check.py $pid --tier $tier > $out/check_$pid.txt 2>$out/check_$pid.err; echo "exit=$? (tier $tier, restricted to the harnesses the native sweep flagged: $hits)" >> $out/check_$pid.txt)
-  if ! grep -q "^VIOLATION" $out/check_$pid.txt && [ "$tier" = quick ]; then
-    # the flagged harnesses may belong to the thorough tier only (larger bounds, slow ones)
-    (cd $V && VERIF_ONLY="$hits" python3 check.py $pid --tier thorough > $out/check_${pid}_thorough.txt 2>$out/check_${pid}_thorough.err; echo "exit=$? (tier thorough, restricted to the harnesses the native sweep flagged: $hits)" >> $out/check_${pid}_thorough.txt)
-    if grep -q "^VIOLATION" $out/check_${pid}_thorough.txt; then cp $out/check_${pid}_thorough.txt $out/check_$pid.txt; fi
-  fi
-fi
-if [ -z "$hits" ] || { ! grep -q "^VIOLATION" $out/check_$pid.txt && grep -q "no obligation was generated" $out/check_$pid.txt; }; then
-  (cd $V && python3 check.py $pid --tier $tier > $out/check_$pid.txt 2>$out/check_$pid.err; echo "exit=$? (tier $tier, full check; native sweep flagged nothing the restricted runs could decide)" >> $out/check_$pid.txt)
-fi
-pif [ -n "$hits" ]; then
-  (cd $V && VERIF_ONLY="$hits" python3 check.py $pid --tier $tier > $out/check_$pid.txt 2>$out/check_$pid.err; echo "exit=$? (tier $tier, restricted to the harnesses the native sweep flagged: $hits)" >> $out/check_$pid.txt)
-  if ! grep -q "^VIOLATION" $out/check_$pid.txt && [ "$tier" = quick ]; then
-    # the flagged harnesses may belong to the thorough tier only (larger bounds, slow ones)
-    (cd $V && VERIF_ONLY="$hits" python3 check.py $pid --tier thorough > $out/check_${pid}_thorough.txt 2>$out/check_${pid}_thorough.err; echo "exit=$? (tier thorough, restricted to the harnesses the native sweep flagged: $hits)" >> $out/check_${pid}_thorough.txt)
-    if grep -q "^VIOLATION" $out/check_${pid}_thorough.txt; then cp $out/check_${pid}_thorough.txt $out/check_$pid.txt; fi
-  fi
-fi
-if [ -z "$hits" ] || { ! grep -q "^VIOLATION" $out/check_$pid.txt && grep -q "no obligation was generated" $out/check_$pid.txt; }; then
-  (cd $V && python3 check.py $pid --tier $tier > $out/check_$pid.txt 2>$out/check_$pid.err; echo "exit=$? (tier $tier, full check; native sweep flagged nothing the restricted runs could decide)" >> $out/check_$pid.txt)
-fi
- if [ -n "$hits" ]; then
-  (cd $V && VERIF_ONLY="$hits" python3 check.py $pid --tier $tier > $out/check_$pid.txt 2>$out/check_$pid.err; echo "exit=$? (tier $tier, restricted to the harnesses the native sweep flagged: $hits)" >> $out/check_$pid.txt)
-  if ! grep -q "^VIOLATION" $out/check_$pid.txt && [ "$tier" = quick ]; then
-    # the flagged harnesses may belong to the thorough tier only (larger bounds, slow ones)
-    (cd $V && VERIF_ONLY="$hits" python3 check.py $pid --tier thorough > $out/check_${pid}_thorough.txt 2>$out/check_${pid}_thorough.err; echo "exit=$? (tier thorough, restricted to the harnesses the native sweep flagged: $hits)" >> $out/check_${pid}_thorough.txt)
-    if grep -q "^VIOLATION" $out/check_${pid}_thorough.txt; then cp $out/check_${pid}_thorough.txt $out/check_$pid.txt; fi
-  fi
-fi
-if [ -z "$hits" ] || { ! grep -q "^VIOLATION" $out/check_$pid.txt && grep -q "no obligation was generated" $out/check_$pid.txt; }; then
-  (cd $V && python3 check.py $pid --tier $tier > $out/check_$pid.txt 2>$out/check_$pid.err; echo "exit=$? (tier $tier, full check; native sweep flagged nothing the restricted runs could decide)" >> $out/check_$pid.txt)
-fi
-$if [ -n "$hits" ]; then
-  (cd $V && VERIF_ONLY="$hits" python3 check.py $pid --tier $tier > $out/check_$pid.txt 2>$out/check_$pid.err; echo "exit=$? (tier $tier, restricted to the harnesses the native sweep flagged: $hits)" >> $out/check_$pid.txt)
-  if ! grep -q "^VIOLATION" $out/check_$pid.txt && [ "$tier" = quick ]; then
-    # the flagged harnesses may belong to the thorough tier only (larger bounds, slow ones)
-    (cd $V && VERIF_ONLY="$hits" python3 check.py $pid --tier thorough > $out/check_${pid}_thorough.txt 2>$out/check_${pid}_thorough.err; echo "exit=$? (tier thorough, restricted to the harnesses the native sweep flagged: $hits)" >> $out/check_${pid}_thorough.txt)
-    if grep -q "^VIOLATION" $out/check_${pid}_thorough.txt; then cp $out/check_${pid}_thorough.txt $out/check_$pid.txt; fi
-  fi
-fi
-if [ -z "$hits" ] || { ! grep -q "^VIOLATION" $out/check_$pid.txt && grep -q "no obligation was generated" $out/check_$pid.txt; }; then
-  (cd $V && python3 check.py $pid --tier $tier > $out/check_$pid.txt 2>$out/check_$pid.err; echo "exit=$? (tier $tier, full check; native sweep flagged nothing the restricted runs could decide)" >> $out/check_$pid.txt)
-fi
-{if [ -n "$hits" ]; then
-  (cd $V && VERIF_ONLY="$hits" python3 check.py $pid --tier $tier > $out/check_$pid.txt 2>$out/check_$pid.err; echo "exit=$? (tier $tier, restricted to the harnesses the native sweep flagged: $hits)" >> $out/check_$pid.txt)
-  if ! grep -q "^VIOLATION" $out/check_$pid.txt && [ "$tier" = quick ]; then
-    # the flagged harnesses may belong to the thorough tier only (larger bounds, slow ones)
-    (cd $V && VERIF_ONLY="$hits" python3 check.py $pid --tier thorough > $out/check_${pid}_thorough.txt 2>$out/check_${pid}_thorough.err; echo "exit=$? (tier thorough, restricted to the harnesses the native sweep flagged: $hits)" >> $out/check_${pid}_thorough.txt)
-    if grep -q "^VIOLATION" $out/check_${pid}_thorough.txt; then cp $out/check_${pid}_thorough.txt $out/check_$pid.txt; fi
-  fi
-fi
-if [ -z "$hits" ] || { ! grep -q "^VIOLATION" $out/check_$pid.txt && grep -q "no obligation was generated" $out/check_$pid.txt; }; then
-  (cd $V && python3 check.py $pid --tier $tier > $out/check_$pid.txt 2>$out/check_$pid.err; echo "exit=$? (tier $tier, full check; native sweep flagged nothing the restricted runs could decide)" >> $out/check_$pid.txt)
-fi
-Sif [ -n "$hits" ]; then
-  (cd $V && VERIF_ONLY="$hits" python3 check.py $pid --tier $tier > $out/check_$pid.txt 2>$out/check_$pid.err; echo "exit=$? (tier $tier, restricted to the harnesses the native sweep flagged: $hits)" >> $out/check_$pid.txt)
-  if ! grep -q "^VIOLATION" $out/check_$pid.txt && [ "$tier" = quick ]; then
-    # the flagged harnesses may belong to the thorough tier only (larger bounds, slow ones)
-    (cd $V && VERIF_ONLY="$hits" python3 check.py $pid --tier thorough > $out/check_${pid}_thorough.txt 2>$out/check_${pid}_thorough.err; echo "exit=$? (tier thorough, restricted to the harnesses the native sweep flagged: $hits)" >> $out/check_${pid}_thorough.txt)
-    if grep -q "^VIOLATION" $out/check_${pid}_thorough.txt; then cp $out/check_${pid}_thorough.txt $out/check_$pid.txt; fi
-  fi
-fi
-if [ -z "$hits" ] || { ! grep -q "^VIOLATION" $out/check_$pid.txt && grep -q "no obligation was generated" $out/check_$pid.txt; }; then
-  (cd $V && python3 check.py $pid --tier $tier > $out/check_$pid.txt 2>$out/check_$pid.err; echo "exit=$? (tier $tier, full check; native sweep flagged nothing the restricted runs could decide)" >> $out/check_$pid.txt)
-fi
-Wif [ -n "$hits" ]; then
-  (cd $V && VERIF_ONLY="$hits" python3 check.py $pid --tier $tier > $out/check_$pid.txt 2>$out/check_$pid.err; echo "exit=$? (tier $tier, restricted to the harnesses the native sweep flagged: $hits)" >> $out/check_$pid.txt)
-  if ! grep -q "^VIOLATION" $out/check_$pid.txt && [ "$tier" = quick ]; then
-    # the flagged harnesses may belong to the thorough tier only (larger bounds, slow ones)
-    (cd $V && VERIF_ONLY="$hits" python3 check.py $pid --tier thorough > $out/check_${pid}_thorough.txt 2>$out/check_${pid}_thorough.err; echo "exit=$? (tier thorough, restricted to the harnesses the native sweep flagged: $hits)" >> $out/check_${pid}_thorough.txt)
-    if grep -q "^VIOLATION" $out/check_${pid}_thorough.txt; then cp $out/check_${pid}_thorough.txt $out/check_$pid.txt; fi
-  fi
-fi
-if [ -z "$hits" ] || { ! grep -q "^VIOLATION" $out/check_$pid.txt && grep -q "no obligation was generated" $out/check_$pid.txt; }; then
-  (cd $V && python3 check.py $pid --tier $tier > $out/check_$pid.txt 2>$out/check_$pid.err; echo "exit=$? (tier $tier, full check; native sweep flagged nothing the restricted runs could decide)" >> $out/check_$pid.txt)
-fi
-Eif [ -n "$hits" ]; then
-  (cd $V && VERIF_ONLY="$hits" python3 check.py $pid --tier $tier > $out/check_$pid.txt 2>$out/check_$pid.err; echo "exit=$? (tier $tier, restricted to the harnesses the native sweep flagged: $hits)" >> $out/check_$pid.txt)
-  if ! grep -q "^VIOLATION" $out/check_$pid.txt && [ "$tier" = quick ]; then
-    # the flagged harnesses may belong to the thorough tier only (larger bounds, slow ones)
-    (cd $V && VERIF_ONLY="$hits" python3 check.py $pid --tier thorough > $out/check_${pid}_thorough.txt 2>$out/check_${pid}_thorough.err; echo "exit=$? (tier thorough, restricted to the harnesses the native sweep flagged: $hits)" >> $out/check_${pid}_thorough.txt)
-    if grep -q "^VIOLATION" $out/check_${pid}_thorough.txt; then cp $out/check_${pid}_thorough.txt $out/check_$pid.txt; fi
-  fi
-fi
-if [ -z "$hits" ] || { ! grep -q "^VIOLATION" $out/check_$pid.txt && grep -q "no obligation was generated" $out/check_$pid.txt; }; then
-  (cd $V && python3 check.py $pid --tier $tier > $out/check_$pid.txt 2>$out/check_$pid.err; echo "exit=$? (tier $tier, full check; native sweep flagged nothing the restricted runs could decide)" >> $out/check_$pid.txt)
-fi
-Eif [ -n "$hits" ]; then
-  (cd $V && VERIF_ONLY="$hits" python3 check.py $pid --tier $tier > $out/check_$pid.txt 2>$out/check_$pid.err; echo "exit=$? (tier $tier, restricted to the harnesses the native sweep flagged: $hits)" >> $out/check_$pid.txt)
-  if ! grep -q "^VIOLATION" $out/check_$pid.txt && [ "$tier" = quick ]; then
-    # the flagged harnesses may belong to the thorough tier only (larger bounds, slow ones)
-    (cd $V && VERIF_ONLY="$hits" python3 check.py $pid --tier thorough > $out/check_${pid}_thorough.txt 2>$out/check_${pid}_thorough.err; echo "exit=$? (tier thorough, restricted to the harnesses the native sweep flagged: $hits)" >> $out/check_${pid}_thorough.txt)
-    if grep -q "^VIOLATION" $out/check_${pid}_thorough.txt; then cp $out/check_${pid}_thorough.txt $out/check_$pid.txt; fi
-  fi
-fi
-if [ -z "$hits" ] || { ! grep -q "^VIOLATION" $out/check_$pid.txt && grep -q "no obligation was generated" $out/check_$pid.txt; }; then
-  (cd $V && python3 check.py $pid --tier $tier > $out/check_$pid.txt 2>$out/check_$pid.err; echo "exit=$? (tier $tier, full check; native sweep flagged nothing the restricted runs could decide)" >> $out/check_$pid.txt)
-fi
-Pif [ -n "$hits" ]; then
-  (cd $V && VERIF_ONLY="$hits" python3 check.py $pid --tier $tier > $out/check_$pid.txt 2>$out/check_$pid.err; echo "exit=$? (tier $tier, restricted to the harnesses the native sweep flagged: $hits)" >> $out/check_$pid.txt)
-  if ! grep -q "^VIOLATION" $out/check_$pid.txt && [ "$tier" = quick ]; then
-    # the flagged harnesses may belong to the thorough tier only (larger bounds, slow ones)
-    (cd $V && VERIF_ONLY="$hits" python3 check.py $pid --tier thorough > $out/check_${pid}_thorough.txt 2>$out/check_${pid}_thorough.err; echo "exit=$? (tier thorough, restricted to the harnesses the native sweep flagged: $hits)" >> $out/check_${pid}_thorough.txt)
-    if grep -q "^VIOLATION" $out/check_${pid}_thorough.txt; then cp $out/check_${pid}_thorough.txt $out/check_$pid.txt; fi
-  fi
-fi
-if [ -z "$hits" ] || { ! grep -q "^VIOLATION" $out/check_$pid.txt && grep -q "no obligation was generated" $out/check_$pid.txt; }; then
-  (cd $V && python3 check.py $pid --tier $tier > $out/check_$pid.txt 2>$out/check_$pid.err; echo "exit=$? (tier $tier, full check; native sweep flagged nothing the restricted runs could decide)" >> $out/check_$pid.txt)
-fi
-:if [ -n "$hits" ]; then
-  (cd $V && VERIF_ONLY="$hits" python3 check.py $pid --tier $tier > $out/check_$pid.txt 2>$out/check_$pid.err; echo "exit=$? (tier $tier, restricted to the harnesses the native sweep flagged: $hits)" >> $out/check_$pid.txt)
-  if ! grep -q "^VIOLATION" $out/check_$pid.txt && [ "$tier" = quick ]; then
-    # the flagged harnesses may belong to the thorough tier only (larger bounds, slow ones)
-    (cd $V && VERIF_ONLY="$hits" python3 check.py $pid --tier thorough > $out/check_${pid}_thorough.txt 2>$out/check_${pid}_thorough.err; echo "exit=$? (tier thorough, restricted to the harnesses the native sweep flagged: $hits)" >> $out/check_${pid}_thorough.txt)
-    if grep -q "^VIOLATION" $out/check_${pid}_thorough.txt; then cp $out/check_${pid}_thorough.txt $out/check_$pid.txt; fi
-  fi
-fi
-if [ -z "$hits" ] || { ! grep -q "^VIOLATION" $out/check_$pid.txt && grep -q "no obligation was generated" $out/check_$pid.txt; }; then
-  (cd $V && python3 check.py $pid --tier $tier > $out/check_$pid.txt 2>$out/check_$pid.err; echo "exit=$? (tier $tier, full check; native sweep flagged nothing the restricted runs could decide)" >> $out/check_$pid.txt)
-fi
--if [ -n "$hits" ]; then
-  (cd $V && VERIF_ONLY="$hits" python3 check.py $pid --tier $tier > $out/check_$pid.txt 2>$out/check_$pid.err; echo "exit=$? (tier $tier, restricted to the harnesses the native sweep flagged: $hits)" >> $out/check_$pid.txt)
-  if ! grep -q "^VIOLATION" $out/check_$pid.txt && [ "$tier" = quick ]; then
-    # the flagged harnesses may belong to the thorough tier only (larger bounds, slow ones)
-    (cd $V && VERIF_ONLY="$hits" python3 check.py $pid --tier thorough > $out/check_${pid}_thorough.txt 2>$out/check_${pid}_thorough.err; echo "exit=$? (tier thorough, restricted to the harnesses the native sweep flagged: $hits)" >> $out/check_${pid}_thorough.txt)
-    if grep -q "^VIOLATION" $out/check_${pid}_thorough.txt; then cp $out/check_${pid}_thorough.txt $out/check_$pid.txt; fi
-  fi
-fi
-if [ -z "$hits" ] || { ! grep -q "^VIOLATION" $out/check_$pid.txt && grep -q "no obligation was generated" $out/check_$pid.txt; }; then
-  (cd $V && python3 check.py $pid --tier $tier > $out/check_$pid.txt 2>$out/check_$pid.err; echo "exit=$? (tier $tier, full check; native sweep flagged nothing the restricted runs could decide)" >> $out/check_$pid.txt)
-fi
-3if [ -n "$hits" ]; then
-  (cd $V && VERIF_ONLY="$hits" python3 check.py $pid --tier $tier > $out/check_$pid.txt 2>$out/check_$pid.err; echo "exit=$? (tier $tier, restricted to the harnesses the native sweep flagged: $hits)" >> $out/check_$pid.txt)
-  if ! grep -q "^VIOLATION" $out/check_$pid.txt && [ "$tier" = quick ]; then
-    # the flagged harnesses may belong to the thorough tier only (larger bounds, slow ones)
-    (cd $V && VERIF_ONLY="$hits" python3 check.py $pid --tier thorough > $out/check_${pid}_thorough.txt 2>$out/check_${pid}_thorough.err; echo "exit=$? (tier thorough, restricted to the harnesses the native sweep flagged: $hits)" >> $out/check_${pid}_thorough.txt)
-    if grep -q "^VIOLATION" $out/check_${pid}_thorough.txt; then cp $out/check_${pid}_thorough.txt $out/check_$pid.txt; fi
-  fi
-fi
-if [ -z "$hits" ] || { ! grep -q "^VIOLATION" $out/check_$pid.txt && grep -q "no obligation was generated" $out/check_$pid.txt; }; then
-  (cd $V && python3 check.py $pid --tier $tier > $out/check_$pid.txt 2>$out/check_$pid.err; echo "exit=$? (tier $tier, full check; native sweep flagged nothing the restricted runs could decide)" >> $out/check_$pid.txt)
-fi
-0if [ -n "$hits" ]; then
-  (cd $V && VERIF_ONLY="$hits" python3 check.py $pid --tier $tier > $out/check_$pid.txt 2>$out/check_$pid.err; echo "exit=$? (tier $tier, restricted to the harnesses the native sweep flagged: $hits)" >> $out/check_$pid.txt)
-  if ! grep -q "^VIOLATION" $out/check_$pid.txt && [ "$tier" = quick ]; then
-    # the flagged harnesses may belong to the thorough tier only (larger bounds, slow ones)
-    (cd $V && VERIF_ONLY="$hits" python3 check.py $pid --tier thorough > $out/check_${pid}_thorough.txt 2>$out/check_${pid}_thorough.err; echo "exit=$? (tier thorough, restricted to the harnesses the native sweep flagged: $hits)" >> $out/check_${pid}_thorough.txt)
-    if grep -q "^VIOLATION" $out/check_${pid}_thorough.txt; then cp $out/check_${pid}_thorough.txt $out/check_$pid.txt; fi
-  fi
-fi
-if [ -z "$hits" ] || { ! grep -q "^VIOLATION" $out/check_$pid.txt && grep -q "no obligation was generated" $out/check_$pid.txt; }; then
-  (cd $V && python3 check.py $pid --tier $tier > $out/check_$pid.txt 2>$out/check_$pid.err; echo "exit=$? (tier $tier, full check; native sweep flagged nothing the restricted runs could decide)" >> $out/check_$pid.txt)
-fi
-0if [ -n "$hits" ]; then
-  (cd $V && VERIF_ONLY="$hits" python3 check.py $pid --tier $tier > $out/check_$pid.txt 2>$out/check_$pid.err; echo "exit=$? (tier $tier, restricted to the harnesses the native sweep flagged: $hits)" >> $out/check_$pid.txt)
-  if ! grep -q "^VIOLATION" $out/check_$pid.txt && [ "$tier" = quick ]; then
-    # the flagged harnesses may belong to the thorough tier only (larger bounds, slow ones)
-    (cd $V && VERIF_ONLY="$hits" python3 check.py $pid --tier thorough > $out/check_${pid}_thorough.txt 2>$out/check_${pid}_thorough.err; echo "exit=$? (tier thorough, restricted to the harnesses the native sweep flagged: $hits)" >> $out/check_${pid}_thorough.txt)
-    if grep -q "^VIOLATION" $out/check_${pid}_thorough.txt; then cp $out/check_${pid}_thorough.txt $out/check_$pid.txt; fi
-  fi
-fi
-if [ -z "$hits" ] || { ! grep -q "^VIOLATION" $out/check_$pid.txt && grep -q "no obligation was generated" $out/check_$pid.txt; }; then
-  (cd $V && python3 check.py $pid --tier $tier > $out/check_$pid.txt 2>$out/check_$pid.err; echo "exit=$? (tier $tier, full check; native sweep flagged nothing the restricted runs could decide)" >> $out/check_$pid.txt)
-fi
-0if [ -n "$hits" ]; then
-  (cd $V && VERIF_ONLY="$hits" python3 check.py $pid --tier $tier > $out/check_$pid.txt 2>$out/check_$pid.err; echo "exit=$? (tier $tier, restricted to the harnesses the native sweep flagged: $hits)" >> $out/check_$pid.txt)
-  if ! grep -q "^VIOLATION" $out/check_$pid.txt && [ "$tier" = quick ]; then
-    # the flagged harnesses may belong to the thorough tier only (larger bounds, slow ones)
-    (cd $V && VERIF_ONLY="$hits" python3 check.py $pid --tier thorough > $out/check_${pid}_thorough.txt 2>$out/check_${pid}_thorough.err; echo "exit=$? (tier thorough, restricted to the harnesses the native sweep flagged: $hits)" >> $out/check_${pid}_thorough.txt)
-    if grep -q "^VIOLATION" $out/check_${pid}_thorough.txt; then cp $out/check_${pid}_thorough.txt $out/check_$pid.txt; fi
-  fi
-fi
-if [ -z "$hits" ] || { ! grep -q "^VIOLATION" $out/check_$pid.txt && grep -q "no obligation was generated" $out/check_$pid.txt; }; then
-  (cd $V && python3 check.py $pid --tier $tier > $out/check_$pid.txt 2>$out/check_$pid.err; echo "exit=$? (tier $tier, full check; native sweep flagged nothing the restricted runs could decide)" >> $out/check_$pid.txt)
-fi
-0if [ -n "$hits" ]; then
-  (cd $V && VERIF_ONLY="$hits" python3 check.py $pid --tier $tier > $out/check_$pid.txt 2>$out/check_$pid.err; echo "exit=$? (tier $tier, restricted to the harnesses the native sweep flagged: $hits)" >> $out/check_$pid.txt)
-  if ! grep -q "^VIOLATION" $out/check_$pid.txt && [ "$tier" = quick ]; then
-    # the flagged harnesses may belong to the thorough tier only (larger bounds, slow ones)
-    (cd $V && VERIF_ONLY="$hits" python3 check.py $pid --tier thorough > $out/check_${pid}_thorough.txt 2>$out/check_${pid}_thorough.err; echo "exit=$? (tier thorough, restricted to the harnesses the native sweep flagged: $hits)" >> $out/check_${pid}_thorough.txt)
-    if grep -q "^VIOLATION" $out/check_${pid}_thorough.txt; then cp $out/check_${pid}_thorough.txt $out/check_$pid.txt; fi
-  fi
-fi
-if [ -z "$hits" ] || { ! grep -q "^VIOLATION" $out/check_$pid.txt && grep -q "no obligation was generated" $out/check_$pid.txt; }; then
-  (cd $V && python3 check.py $pid --tier $tier > $out/check_$pid.txt 2>$out/check_$pid.err; echo "exit=$? (tier $tier, full check; native sweep flagged nothing the restricted runs could decide)" >> $out/check_$pid.txt)
-fi
-}if [ -n "$hits" ]; then
-  (cd $V && VERIF_ONLY="$hits" python3 check.py $pid --tier $tier > $out/check_$pid.txt 2>$out/check_$pid.err; echo "exit=$? (tier $tier, restricted to the harnesses the native sweep flagged: $hits)" >> $out/check_$pid.txt)
-  if ! grep -q "^VIOLATION" $out/check_$pid.txt && [ "$tier" = quick ]; then
-    # the flagged harnesses may belong to the thorough tier only (larger bounds, slow ones)
-    (cd $V && VERIF_ONLY="$hits" python3 check.py $pid --tier thorough > $out/check_${pid}_thorough.txt 2>$out/check_${pid}_thorough.err; echo "exit=$? (tier thorough, restricted to the harnesses the native sweep flagged: $hits)" >> $out/check_${pid}_thorough.txt)
-    if grep -q "^VIOLATION" $out/check_${pid}_thorough.txt; then cp $out/check_${pid}_thorough.txt $out/check_$pid.txt; fi
-  fi
-fi
-if [ -z "$hits" ] || { ! grep -q "^VIOLATION" $out/check_$pid.txt && grep -q "no obligation was generated" $out/check_$pid.txt; }; then
-  (cd $V && python3 check.py $pid --tier $tier > $out/check_$pid.txt 2>$out/check_$pid.err; echo "exit=$? (tier $tier, full check; native sweep flagged nothing the restricted runs could decide)" >> $out/check_$pid.txt)
-fi
- if [ -n "$hits" ]; then
-  (cd $V && VERIF_ONLY="$hits" python3 check.py $pid --tier $tier > $out/check_$pid.txt 2>$out/check_$pid.err; echo "exit=$? (tier $tier, restricted to the harnesses the native sweep flagged: $hits)" >> $out/check_$pid.txt)
-  if ! grep -q "^VIOLATION" $out/check_$pid.txt && [ "$tier" = quick ]; then
-    # the flagged harnesses may belong to the thorough tier only (larger bounds, slow ones)
-    (cd $V && VERIF_ONLY="$hits" python3 check.py $pid --tier thorough > $out/check_${pid}_thorough.txt 2>$out/check_${pid}_thorough.err; echo "exit=$? (tier thorough, restricted to the harnesses the native sweep flagged: $hits)" >> $out/check_${pid}_thorough.txt)
-    if grep -q "^VIOLATION" $out/check_${pid}_thorough.txt; then cp $out/check_${pid}_thorough.txt $out/check_$pid.txt; fi
-  fi
-fi
-if [ -z "$hits" ] || { ! grep -q "^VIOLATION" $out/check_$pid.txt && grep -q "no obligation was generated" $out/check_$pid.txt; }; then
-  (cd $V && python3 check.py $pid --tier $tier > $out/check_$pid.txt 2>$out/check_$pid.err; echo "exit=$? (tier $tier, full check; native sweep flagged nothing the restricted runs could decide)" >> $out/check_$pid.txt)
-fi
-|if [ -n "$hits" ]; then
-  (cd $V && VERIF_ONLY="$hits" python3 check.py $pid --tier $tier > $out/check_$pid.txt 2>$out/check_$pid.err; echo "exit=$? (tier $tier, restricted to the harnesses the native sweep flagged: $hits)" >> $out/check_$pid.txt)
-  if ! grep -q "^VIOLATION" $out/check_$pid.txt && [ "$tier" = quick ]; then
-    # the flagged harnesses may belong to the thorough tier only (larger bounds, slow ones)
-    (cd $V && VERIF_ONLY="$hits" python3 check.py $pid --tier thorough > $out/check_${pid}_thorough.txt 2>$out/check_${pid}_thorough.err; echo "exit=$? (tier thorough, restricted to the harnesses the native sweep flagged: $hits)" >> $out/check_${pid}_thorough.txt)
-    if grep -q "^VIOLATION" $out/check_${pid}_thorough.txt; then cp $out/check_${pid}_thorough.txt $out/check_$pid.txt; fi
-  fi
-fi
-if [ -z "$hits" ] || { ! grep -q "^VIOLATION" $out/check_$pid.txt && grep -q "no obligation was generated" $out/check_$pid.txt; }; then
-  (cd $V && python3 check.py $pid --tier $tier > $out/check_$pid.txt 2>$out/check_$pid.err; echo "exit=$? (tier $tier, full check; native sweep flagged nothing the restricted runs could decide)" >> $out/check_$pid.txt)
-fi
- if [ -n "$hits" ]; then
-  (cd $V && VERIF_ONLY="$hits" python3 check.py $pid --tier $tier > $out/check_$pid.txt 2>$out/check_$pid.err; echo "exit=$? (tier $tier, restricted to the harnesses the native sweep flagged: $hits)" >> $out/check_$pid.txt)
-  if ! grep -q "^VIOLATION" $out/check_$pid.txt && [ "$tier" = quick ]; then
-    # the flagged harnesses may belong to the thorough tier only (larger bounds, slow ones)
-    (cd $V && VERIF_ONLY="$hits" python3 check.py $pid --tier thorough > $out/check_${pid}_thorough.txt 2>$out/check_${pid}_thorough.err; echo "exit=$? (tier thorough, restricted to the harnesses the native sweep flagged: $hits)" >> $out/check_${pid}_thorough.txt)
-    if grep -q "^VIOLATION" $out/check_${pid}_thorough.txt; then cp $out/check_${pid}_thorough.txt $out/check_$pid.txt; fi
-  fi
-fi
-if [ -z "$hits" ] || { ! grep -q "^VIOLATION" $out/check_$pid.txt && grep -q "no obligation was generated" $out/check_$pid.txt; }; then
-  (cd $V && python3 check.py $pid --tier $tier > $out/check_$pid.txt 2>$out/check_$pid.err; echo "exit=$? (tier $tier, full check; native sweep flagged nothing the restricted runs could decide)" >> $out/check_$pid.txt)
-fi
-gif [ -n "$hits" ]; then
-  (cd $V && VERIF_ONLY="$hits" python3 check.py $pid --tier $tier > $out/check_$pid.txt 2>$out/check_$pid.err; echo "exit=$? (tier $tier, restricted to the harnesses the native sweep flagged: $hits)" >> $out/check_$pid.txt)
-  if ! grep -q "^VIOLATION" $out/check_$pid.txt && [ "$tier" = quick ]; then
-    # the flagged harnesses may belong to the thorough tier only (larger bounds, slow ones)
-    (cd $V && VERIF_ONLY="$hits" python3 check.py $pid --tier thorough > $out/check_${pid}_thorough.txt 2>$out/check_${pid}_thorough.err; echo "exit=$? (tier thorough, restricted to the harnesses the native sweep flagged: $hits)" >> $out/check_${pid}_thorough.txt)
-    if grep -q "^VIOLATION" $out/check_${pid}_thorough.txt; then cp $out/check_${pid}_thorough.txt $out/check_$pid.txt; fi
-  fi
-fi
-if [ -z "$hits" ] || { ! grep -q "^VIOLATION" $out/check_$pid.txt && grep -q "no obligation was generated" $out/check_$pid.txt; }; then
-  (cd $V && python3 check.py $pid --tier $tier > $out/check_$pid.txt 2>$out/check_$pid.err; echo "exit=$? (tier $tier, full check; native sweep flagged nothing the restricted runs could decide)" >> $out/check_$pid.txt)
-fi
-rif [ -n "$hits" ]; then
-  (cd $V && VERIF_ONLY="$hits" python3 check.py $pid --tier $tier > $out/check_$pid.txt 2>$out/check_$pid.err; echo "exit=$? (tier $tier, restricted to the harnesses the native sweep flagged: $hits)" >> $out/check_$pid.txt)
-  if ! grep -q "^VIOLATION" $out/check_$pid.txt && [ "$tier" = quick ]; then
-    # the flagged harnesses may belong to the thorough tier only (larger bounds, slow ones)
-    (cd $V && VERIF_ONLY="$hits" python3 check.py $pid --tier thorough > $out/check_${pid}_thorough.txt 2>$out/check_${pid}_thorough.err; echo "exit=$? (tier thorough, restricted to the harnesses the native sweep flagged: $hits)" >> $out/check_${pid}_thorough.txt)
-    if grep -q "^VIOLATION" $out/check_${pid}_thorough.txt; then cp $out/check_${pid}_thorough.txt $out/check_$pid.txt; fi
-  fi
-fi
-if [ -z "$hits" ] || { ! grep -q "^VIOLATION" $out/check_$pid.txt && grep -q "no obligation was generated" $out/check_$pid.txt; }; then
-  (cd $V && python3 check.py $pid --tier $tier > $out/check_$pid.txt 2>$out/check_$pid.err; echo "exit=$? (tier $tier, full check; native sweep flagged nothing the restricted runs could decide)" >> $out/check_$pid.txt)
-fi
-eif [ -n "$hits" ]; then
-  (cd $V && VERIF_ONLY="$hits" python3 check.py $pid --tier $tier > $out/check_$pid.txt 2>$out/check_$pid.err; echo "exit=$? (tier $tier, restricted to the harnesses the native sweep flagged: $hits)" >> $out/check_$pid.txt)
-  if ! grep -q "^VIOLATION" $out/check_$pid.txt && [ "$tier" = quick ]; then
-    # the flagged harnesses may belong to the thorough tier only (larger bounds, slow ones)
-    (cd $V && VERIF_ONLY="$hits" python3 check.py $pid --tier thorough > $out/check_${pid}_thorough.txt 2>$out/check_${pid}_thorough.err; echo "exit=$? (tier thorough, restricted to the harnesses the native sweep flagged: $hits)" >> $out/check_${pid}_thorough.txt)
-    if grep -q "^VIOLATION" $out/check_${pid}_thorough.txt; then cp $out/check_${pid}_thorough.txt $out/check_$pid.txt; fi
-  fi
-fi
-if [ -z "$hits" ] || { ! grep -q "^VIOLATION" $out/check_$pid.txt && grep -q "no obligation was generated" $out/check_$pid.txt; }; then
-  (cd $V && python3 check.py $pid --tier $tier > $out/check_$pid.txt 2>$out/check_$pid.err; echo "exit=$? (tier $tier, full check; native sweep flagged nothing the restricted runs could decide)" >> $out/check_$pid.txt)
-fi
-pif [ -n "$hits" ]; then
-  (cd $V && VERIF_ONLY="$hits" python3 check.py $pid --tier $tier > $out/check_$pid.txt 2>$out/check_$pid.err; echo "exit=$? (tier $tier, restricted to the harnesses the native sweep flagged: $hits)" >> $out/check_$pid.txt)
-  if ! grep -q "^VIOLATION" $out/check_$pid.txt && [ "$tier" = quick ]; then
-    # the flagged harnesses may belong to the thorough tier only (larger bounds, slow ones)
-    (cd $V && VERIF_ONLY="$hits" python3 check.py $pid --tier thorough > $out/check_${pid}_thorough.txt 2>$out/check_${pid}_thorough.err; echo "exit=$? (tier thorough, restricted to the harnesses the native sweep flagged: $hits)" >> $out/check_${pid}_thorough.txt)
-    if grep -q "^VIOLATION" $out/check_${pid}_thorough.txt; then cp $out/check_${pid}_thorough.txt $out/check_$pid.txt; fi
-  fi
-fi
-if [ -z "$hits" ] || { ! grep -q "^VIOLATION" $out/check_$pid.txt && grep -q "no obligation was generated" $out/check_$pid.txt; }; then
-  (cd $V && python3 check.py $pid --tier $tier > $out/check_$pid.txt 2>$out/check_$pid.err; echo "exit=$? (tier $tier, full check; native sweep flagged nothing the restricted runs could decide)" >> $out/check_$pid.txt)
-fi
- if [ -n "$hits" ]; then
-  (cd $V && VERIF_ONLY="$hits" python3 check.py $pid --tier $tier > $out/check_$pid.txt 2>$out/check_$pid.err; echo "exit=$? (tier $tier, restricted to the harnesses the native sweep flagged: $hits)" >> $out/check_$pid.txt)
-  if ! grep -q "^VIOLATION" $out/check_$pid.txt && [ "$tier" = quick ]; then
-    # the flagged harnesses may belong to the thorough tier only (larger bounds, slow ones)
-    (cd $V && VERIF_ONLY="$hits" python3 check.py $pid --tier thorough > $out/check_${pid}_thorough.txt 2>$out/check_${pid}_thorough.err; echo "exit=$? (tier thorough, restricted to the harnesses the native sweep flagged: $hits)" >> $out/check_${pid}_thorough.txt)
-    if grep -q "^VIOLATION" $out/check_${pid}_thorough.txt; then cp $out/check_${pid}_thorough.txt $out/check_$pid.txt; fi
-  fi
-fi
-if [ -z "$hits" ] || { ! grep -q "^VIOLATION" $out/check_$pid.txt && grep -q "no obligation was generated" $out/check_$pid.txt; }; then
-  (cd $V && python3 check.py $pid --tier $tier > $out/check_$pid.txt 2>$out/check_$pid.err; echo "exit=$? (tier $tier, full check; native sweep flagged nothing the restricted runs could decide)" >> $out/check_$pid.txt)
-fi
-'if [ -n "$hits" ]; then
-  (cd $V && VERIF_ONLY="$hits" python3 check.py $pid --tier $tier > $out/check_$pid.txt 2>$out/check_$pid.err; echo "exit=$? (tier $tier, restricted to the harnesses the native sweep flagged: $hits)" >> $out/check_$pid.txt)
-  if ! grep -q "^VIOLATION" $out/check_$pid.txt && [ "$tier" = quick ]; then
-    # the flagged harnesses may belong to the thorough tier only (larger bounds, slow ones)
-    (cd $V && VERIF_ONLY="$hits" python3 check.py $pid --tier thorough > $out/check_${pid}_thorough.txt 2>$out/check_${pid}_thorough.err; echo "exit=$? (tier thorough, restricted to the harnesses the native sweep flagged: $hits)" >> $out/check_${pid}_thorough.txt)
-    if grep -q "^VIOLATION" $out/check_${pid}_thorough.txt; then cp $out/check_${pid}_thorough.txt $out/check_$pid.txt; fi
-  fi
-fi
-if [ -z "$hits" ] || { ! grep -q "^VIOLATION" $out/check_$pid.txt && grep -q "no obligation was generated" $out/check_$pid.txt; }; then
-  (cd $V && python3 check.py $pid --tier $tier > $out/check_$pid.txt 2>$out/check_$pid.err; echo "exit=$? (tier $tier, full check; native sweep flagged nothing the restricted runs could decide)" >> $out/check_$pid.txt)
-fi
-^if [ -n "$hits" ]; then
-  (cd $V && VERIF_ONLY="$hits" python3 check.py $pid --tier $tier > $out/check_$pid.txt 2>$out/check_$pid.err; echo "exit=$? (tier $tier, restricted to the harnesses the native sweep flagged: $hits)" >> $out/check_$pid.txt)
-  if ! grep -q "^VIOLATION" $out/check_$pid.txt && [ "$tier" = quick ]; then
-    # the flagged harnesses may belong to the thorough tier only (larger bounds, slow ones)
-    (cd $V && VERIF_ONLY="$hits" python3 check.py $pid --tier thorough > $out/check_${pid}_thorough.txt 2>$out/check_${pid}_thorough.err; echo "exit=$? (tier thorough, restricted to the harnesses the native sweep flagged: $hits)" >> $out/check_${pid}_thorough.txt)
-    if grep -q "^VIOLATION" $out/check_${pid}_thorough.txt; then cp $out/check_${pid}_thorough.txt $out/check_$pid.txt; fi
-  fi
-fi
-if [ -z "$hits" ] || { ! grep -q "^VIOLATION" $out/check_$pid.txt && grep -q "no obligation was generated" $out/check_$pid.txt; }; then
-  (cd $V && python3 check.py $pid --tier $tier > $out/check_$pid.txt 2>$out/check_$pid.err; echo "exit=$? (tier $tier, full check; native sweep flagged nothing the restricted runs could decide)" >> $out/check_$pid.txt)
-fi
-Sif [ -n "$hits" ]; then
-  (cd $V && VERIF_ONLY="$hits" python3 check.py $pid --tier $tier > $out/check_$pid.txt 2>$out/check_$pid.err; echo "exit=$? (tier $tier, restricted to the harnesses the native sweep flagged: $hits)" >> $out/check_$pid.txt)
-  if ! grep -q "^VIOLATION" $out/check_$pid.txt && [ "$tier" = quick ]; then
-    # the flagged harnesses may belong to the thorough tier only (larger bounds, slow ones)
-    (cd $V && VERIF_ONLY="$hits" python3 check.py $pid --tier thorough > $out/check_${pid}_thorough.txt 2>$out/check_${pid}_thorough.err; echo "exit=$? (tier thorough, restricted to the harnesses the native sweep flagged: $hits)" >> $out/check_${pid}_thorough.txt)
-    if grep -q "^VIOLATION" $out/check_${pid}_thorough.txt; then cp $out/check_${pid}_thorough.txt $out/check_$pid.txt; fi
-  fi
-fi
-if [ -z "$hits" ] || { ! grep -q "^VIOLATION" $out/check_$pid.txt && grep -q "no obligation was generated" $out/check_$pid.txt; }; then
-  (cd $V && python3 check.py $pid --tier $tier > $out/check_$pid.txt 2>$out/check_$pid.err; echo "exit=$? (tier $tier, full check; native sweep flagged nothing the restricted runs could decide)" >> $out/check_$pid.txt)
-fi
-Wif [ -n "$hits" ]; then
-  (cd $V && VERIF_ONLY="$hits" python3 check.py $pid --tier $tier > $out/check_$pid.txt 2>$out/check_$pid.err; echo "exit=$? (tier $tier, restricted to the harnesses the native sweep flagged: $hits)" >> $out/check_$pid.txt)
-  if ! grep -q "^VIOLATION" $out/check_$pid.txt && [ "$tier" = quick ]; then
-    # the flagged harnesses may belong to the thorough tier only (larger bounds, slow ones)
-    (cd $V && VERIF_ONLY="$hits" python3 check.py $pid --tier thorough > $out/check_${pid}_thorough.txt 2>$out/check_${pid}_thorough.err; echo "exit=$? (tier thorough, restricted to the harnesses the native sweep flagged: $hits)" >> $out/check_${pid}_thorough.txt)
-    if grep -q "^VIOLATION" $out/check_${pid}_thorough.txt; then cp $out/check_${pid}_thorough.txt $out/check_$pid.txt; fi
-  fi
-fi
-if [ -z "$hits" ] || { ! grep -q "^VIOLATION" $out/check_$pid.txt && grep -q "no obligation was generated" $out/check_$pid.txt; }; then
-  (cd $V && python3 check.py $pid --tier $tier > $out/check_$pid.txt 2>$out/check_$pid.err; echo "exit=$? (tier $tier, full check; native sweep flagged nothing the restricted runs could decide)" >> $out/check_$pid.txt)
-fi
-Eif [ -n "$hits" ]; then
-  (cd $V && VERIF_ONLY="$hits" python3 check.py $pid --tier $tier > $out/check_$pid.txt 2>$out/check_$pid.err; echo "exit=$? (tier $tier, restricted to the harnesses the native sweep flagged: $hits)" >> $out/check_$pid.txt)
-  if ! grep -q "^VIOLATION" $out/check_$pid.txt && [ "$tier" = quick ]; then
-    # the flagged harnesses may belong to the thorough tier only (larger bounds, slow ones)
-    (cd $V && VERIF_ONLY="$hits" python3 check.py $pid --tier thorough > $out/check_${pid}_thorough.txt 2>$out/check_${pid}_thorough.err; echo "exit=$? (tier thorough, restricted to the harnesses the native sweep flagged: $hits)" >> $out/check_${pid}_thorough.txt)
-    if grep -q "^VIOLATION" $out/check_${pid}_thorough.txt; then cp $out/check_${pid}_thorough.txt $out/check_$pid.txt; fi
-  fi
-fi
-if [ -z "$hits" ] || { ! grep -q "^VIOLATION" $out/check_$pid.txt && grep -q "no obligation was generated" $out/check_$pid.txt; }; then
-  (cd $V && python3 check.py $pid --tier $tier > $out/check_$pid.txt 2>$out/check_$pid.err; echo "exit=$? (tier $tier, full check; native sweep flagged nothing the restricted runs could decide)" >> $out/check_$pid.txt)
-fi
-Eif [ -n "$hits" ]; then
-  (cd $V && VERIF_ONLY="$hits" python3 check.py $pid --tier $tier > $out/check_$pid.txt 2>$out/check_$pid.err; echo "exit=$? (tier $tier, restricted to the harnesses the native sweep flagged: $hits)" >> $out/check_$pid.txt)
-  if ! grep -q "^VIOLATION" $out/check_$pid.txt && [ "$tier" = quick ]; then
-    # the flagged harnesses may belong to the thorough tier only (larger bounds, slow ones)
-    (cd $V && VERIF_ONLY="$hits" python3 check.py $pid --tier thorough > $out/check_${pid}_thorough.txt 2>$out/check_${pid}_thorough.err; echo "exit=$? (tier thorough, restricted to the harnesses the native sweep flagged: $hits)" >> $out/check_${pid}_thorough.txt)
-    if grep -q "^VIOLATION" $out/check_${pid}_thorough.txt; then cp $out/check_${pid}_thorough.txt $out/check_$pid.txt; fi
-  fi
-fi
-if [ -z "$hits" ] || { ! grep -q "^VIOLATION" $out/check_$pid.txt && grep -q "no obligation was generated" $out/check_$pid.txt; }; then
-  (cd $V && python3 check.py $pid --tier $tier > $out/check_$pid.txt 2>$out/check_$pid.err; echo "exit=$? (tier $tier, full check; native sweep flagged nothing the restricted runs could decide)" >> $out/check_$pid.txt)
-fi
-Pif [ -n "$hits" ]; then
-  (cd $V && VERIF_ONLY="$hits" python3 check.py $pid --tier $tier > $out/check_$pid.txt 2>$out/check_$pid.err; echo "exit=$? (tier $tier, restricted to the harnesses the native sweep flagged: $hits)" >> $out/check_$pid.txt)
-  if ! grep -q "^VIOLATION" $out/check_$pid.txt && [ "$tier" = quick ]; then
-    # the flagged harnesses may belong to the thorough tier only (larger bounds, slow ones)
-    (cd $V && VERIF_ONLY="$hits" python3 check.py $pid --tier thorough > $out/check_${pid}_thorough.txt 2>$out/check_${pid}_thorough.err; echo "exit=$? (tier thorough, restricted to the harnesses the native sweep flagged: $hits)" >> $out/check_${pid}_thorough.txt)
-    if grep -q "^VIOLATION" $out/check_${pid}_thorough.txt; then cp $out/check_${pid}_thorough.txt $out/check_$pid.txt; fi
-  fi
-fi
-if [ -z "$hits" ] || { ! grep -q "^VIOLATION" $out/check_$pid.txt && grep -q "no obligation was generated" $out/check_$pid.txt; }; then
-  (cd $V && python3 check.py $pid --tier $tier > $out/check_$pid.txt 2>$out/check_$pid.err; echo "exit=$? (tier $tier, full check; native sweep flagged nothing the restricted runs could decide)" >> $out/check_$pid.txt)
-fi
--if [ -n "$hits" ]; then
-  (cd $V && VERIF_ONLY="$hits" python3 check.py $pid --tier $tier > $out/check_$pid.txt 2>$out/check_$pid.err; echo "exit=$? (tier $tier, restricted to the harnesses the native sweep flagged: $hits)" >> $out/check_$pid.txt)
-  if ! grep -q "^VIOLATION" $out/check_$pid.txt && [ "$tier" = quick ]; then
-    # the flagged harnesses may belong to the thorough tier only (larger bounds, slow ones)
-    (cd $V && VERIF_ONLY="$hits" python3 check.py $pid --tier thorough > $out/check_${pid}_thorough.txt 2>$out/check_${pid}_thorough.err; echo "exit=$? (tier thorough, restricted to the harnesses the native sweep flagged: $hits)" >> $out/check_${pid}_thorough.txt)
-    if grep -q "^VIOLATION" $out/check_${pid}_thorough.txt; then cp $out/check_${pid}_thorough.txt $out/check_$pid.txt; fi
-  fi
-fi
-if [ -z "$hits" ] || { ! grep -q "^VIOLATION" $out/check_$pid.txt && grep -q "no obligation was generated" $out/check_$pid.txt; }; then
-  (cd $V && python3 check.py $pid --tier $tier > $out/check_$pid.txt 2>$out/check_$pid.err; echo "exit=$? (tier $tier, full check; native sweep flagged nothing the restricted runs could decide)" >> $out/check_$pid.txt)
-fi
-Mif [ -n "$hits" ]; then
-  (cd $V && VERIF_ONLY="$hits" python3 check.py $pid --tier $tier > $out/check_$pid.txt 2>$out/check_$pid.err; echo "exit=$? (tier $tier, restricted to the harnesses the native sweep flagged: $hits)" >> $out/check_$pid.txt)
-  if ! grep -q "^VIOLATION" $out/check_$pid.txt && [ "$tier" = quick ]; then
-    # the flagged harnesses may belong to the thorough tier only (larger bounds, slow ones)
-    (cd $V && VERIF_ONLY="$hits" python3 check.py $pid --tier thorough > $out/check_${pid}_thorough.txt 2>$out/check_${pid}_thorough.err; echo "exit=$? (tier thorough, restricted to the harnesses the native sweep flagged: $hits)" >> $out/check_${pid}_thorough.txt)
-    if grep -q "^VIOLATION" $out/check_${pid}_thorough.txt; then cp $out/check_${pid}_thorough.txt $out/check_$pid.txt; fi
-  fi
-fi
-if [ -z "$hits" ] || { ! grep -q "^VIOLATION" $out/check_$pid.txt && grep -q "no obligation was generated" $out/check_$pid.txt; }; then
-  (cd $V && python3 check.py $pid --tier $tier > $out/check_$pid.txt 2>$out/check_$pid.err; echo "exit=$? (tier $tier, full check; native sweep flagged nothing the restricted runs could decide)" >> $out/check_$pid.txt)
-fi
-Aif [ -n "$hits" ]; then
-  (cd $V && VERIF_ONLY="$hits" python3 check.py $pid --tier $tier > $out/check_$pid.txt 2>$out/check_$pid.err; echo "exit=$? (tier $tier, restricted to the harnesses the native sweep flagged: $hits)" >> $out/check_$pid.txt)
-  if ! grep -q "^VIOLATION" $out/check_$pid.txt && [ "$tier" = quick ]; then
-    # the flagged harnesses may belong to the thorough tier only (larger bounds, slow ones)
-    (cd $V && VERIF_ONLY="$hits" python3 check.py $pid --tier thorough > $out/check_${pid}_thorough.txt 2>$out/check_${pid}_thorough.err; echo "exit=$? (tier thorough, restricted to the harnesses the native sweep flagged: $hits)" >> $out/check_${pid}_thorough.txt)
-    if grep -q "^VIOLATION" $out/check_${pid}_thorough.txt; then cp $out/check_${pid}_thorough.txt $out/check_$pid.txt; fi
-  fi
-fi
-if [ -z "$hits" ] || { ! grep -q "^VIOLATION" $out/check_$pid.txt && grep -q "no obligation was generated" $out/check_$pid.txt; }; then
-  (cd $V && python3 check.py $pid --tier $tier > $out/check_$pid.txt 2>$out/check_$pid.err; echo "exit=$? (tier $tier, full check; native sweep flagged nothing the restricted runs could decide)" >> $out/check_$pid.txt)
-fi
-Pif [ -n "$hits" ]; then
-  (cd $V && VERIF_ONLY="$hits" python3 check.py $pid --tier $tier > $out/check_$pid.txt 2>$out/check_$pid.err; echo "exit=$? (tier $tier, restricted to the harnesses the native sweep flagged: $hits)" >> $out/check_$pid.txt)
-  if ! grep -q "^VIOLATION" $out/check_$pid.txt && [ "$tier" = quick ]; then
-    # the flagged harnesses may belong to the thorough tier only (larger bounds, slow ones)
-    (cd $V && VERIF_ONLY="$hits" python3 check.py $pid --tier thorough > $out/check_${pid}_thorough.txt 2>$out/check_${pid}_thorough.err; echo "exit=$? (tier thorough, restricted to the harnesses the native sweep flagged: $hits)" >> $out/check_${pid}_thorough.txt)
-    if grep -q "^VIOLATION" $out/check_${pid}_thorough.txt; then cp $out/check_${pid}_thorough.txt $out/check_$pid.txt; fi
-  fi
-fi
-if [ -z "$hits" ] || { ! grep -q "^VIOLATION" $out/check_$pid.txt && grep -q "no obligation was generated" $out/check_$pid.txt; }; then
-  (cd $V && python3 check.py $pid --tier $tier > $out/check_$pid.txt 2>$out/check_$pid.err; echo "exit=$? (tier $tier, full check; native sweep flagged nothing the restricted runs could decide)" >> $out/check_$pid.txt)
-fi
-'if [ -n "$hits" ]; then
-  (cd $V && VERIF_ONLY="$hits" python3 check.py $pid --tier $tier > $out/check_$pid.txt 2>$out/check_$pid.err; echo "exit=$? (tier $tier, restricted to the harnesses the native sweep flagged: $hits)" >> $out/check_$pid.txt)
-  if ! grep -q "^VIOLATION" $out/check_$pid.txt && [ "$tier" = quick ]; then
-    # the flagged harnesses may belong to the thorough tier only (larger bounds, slow ones)
-    (cd $V && VERIF_ONLY="$hits" python3 check.py $pid --tier thorough > $out/check_${pid}_thorough.txt 2>$out/check_${pid}_thorough.err; echo "exit=$? (tier thorough, restricted to the harnesses the native sweep flagged: $hits)" >> $out/check_${pid}_thorough.txt)
-    if grep -q "^VIOLATION" $out/check_${pid}_thorough.txt; then cp $out/check_${pid}_thorough.txt $out/check_$pid.txt; fi
-  fi
-fi
-if [ -z "$hits" ] || { ! grep -q "^VIOLATION" $out/check_$pid.txt && grep -q "no obligation was generated" $out/check_$pid.txt; }; then
-  (cd $V && python3 check.py $pid --tier $tier > $out/check_$pid.txt 2>$out/check_$pid.err; echo "exit=$? (tier $tier, full check; native sweep flagged nothing the restricted runs could decide)" >> $out/check_$pid.txt)
-fi
- if [ -n "$hits" ]; then
-  (cd $V && VERIF_ONLY="$hits" python3 check.py $pid --tier $tier > $out/check_$pid.txt 2>$out/check_$pid.err; echo "exit=$? (tier $tier, restricted to the harnesses the native sweep flagged: $hits)" >> $out/check_$pid.txt)
-  if ! grep -q "^VIOLATION" $out/check_$pid.txt && [ "$tier" = quick ]; then
-    # the flagged harnesses may belong to the thorough tier only (larger bounds, slow ones)
-    (cd $V && VERIF_ONLY="$hits" python3 check.py $pid --tier thorough > $out/check_${pid}_thorough.txt 2>$out/check_${pid}_thorough.err; echo "exit=$? (tier thorough, restricted to the harnesses the native sweep flagged: $hits)" >> $out/check_${pid}_thorough.txt)
-    if grep -q "^VIOLATION" $out/check_${pid}_thorough.txt; then cp $out/check_${pid}_thorough.txt $out/check_$pid.txt; fi
-  fi
-fi
-if [ -z "$hits" ] || { ! grep -q "^VIOLATION" $out/check_$pid.txt && grep -q "no obligation was generated" $out/check_$pid.txt; }; then
-  (cd $V && python3 check.py $pid --tier $tier > $out/check_$pid.txt 2>$out/check_$pid.err; echo "exit=$? (tier $tier, full check; native sweep flagged nothing the restricted runs could decide)" >> $out/check_$pid.txt)
-fi
-|if [ -n "$hits" ]; then
-  (cd $V && VERIF_ONLY="$hits" python3 check.py $pid --tier $tier > $out/check_$pid.txt 2>$out/check_$pid.err; echo "exit=$? (tier $tier, restricted to the harnesses the native sweep flagged: $hits)" >> $out/check_$pid.txt)
-  if ! grep -q "^VIOLATION" $out/check_$pid.txt && [ "$tier" = quick ]; then
-    # the flagged harnesses may belong to the thorough tier only (larger bounds, slow ones)
-    (cd $V && VERIF_ONLY="$hits" python3 check.py $pid --tier thorough > $out/check_${pid}_thorough.txt 2>$out/check_${pid}_thorough.err; echo "exit=$? (tier thorough, restricted to the harnesses the native sweep flagged: $hits)" >> $out/check_${pid}_thorough.txt)
-    if grep -q "^VIOLATION" $out/check_${pid}_thorough.txt; then cp $out/check_${pid}_thorough.txt $out/check_$pid.txt; fi
-  fi
-fi
-if [ -z "$hits" ] || { ! grep -q "^VIOLATION" $out/check_$pid.txt && grep -q "no obligation was generated" $out/check_$pid.txt; }; then
-  (cd $V && python3 check.py $pid --tier $tier > $out/check_$pid.txt 2>$out/check_$pid.err; echo "exit=$? (tier $tier, full check; native sweep flagged nothing the restricted runs could decide)" >> $out/check_$pid.txt)
-fi
- if [ -n "$hits" ]; then
-  (cd $V && VERIF_ONLY="$hits" python3 check.py $pid --tier $tier > $out/check_$pid.txt 2>$out/check_$pid.err; echo "exit=$? (tier $tier, restricted to the harnesses the native sweep flagged: $hits)" >> $out/check_$pid.txt)
-  if ! grep -q "^VIOLATION" $out/check_$pid.txt && [ "$tier" = quick ]; then
-    # the flagged harnesses may belong to the thorough tier only (larger bounds, slow ones)
-    (cd $V && VERIF_ONLY="$hits" python3 check.py $pid --tier thorough > $out/check_${pid}_thorough.txt 2>$out/check_${pid}_thorough.err; echo "exit=$? (tier thorough, restricted to the harnesses the native sweep flagged: $hits)" >> $out/check_${pid}_thorough.txt)
-    if grep -q "^VIOLATION" $out/check_${pid}_thorough.txt; then cp $out/check_${pid}_thorough.txt $out/check_$pid.txt; fi
-  fi
-fi
-if [ -z "$hits" ] || { ! grep -q "^VIOLATION" $out/check_$pid.txt && grep -q "no obligation was generated" $out/check_$pid.txt; }; then
-  (cd $V && python3 check.py $pid --tier $tier > $out/check_$pid.txt 2>$out/check_$pid.err; echo "exit=$? (tier $tier, full check; native sweep flagged nothing the restricted runs could decide)" >> $out/check_$pid.txt)
-fi
-sif [ -n "$hits" ]; then
-  (cd $V && VERIF_ONLY="$hits" python3 check.py $pid --tier $tier > $out/check_$pid.txt 2>$out/check_$pid.err; echo "exit=$? (tier $tier, restricted to the harnesses the native sweep flagged: $hits)" >> $out/check_$pid.txt)
-  if ! grep -q "^VIOLATION" $out/check_$pid.txt && [ "$tier" = quick ]; then
-    # the flagged harnesses may belong to the thorough tier only (larger bounds, slow ones)
-    (cd $V && VERIF_ONLY="$hits" python3 check.py $pid --tier thorough > $out/check_${pid}_thorough.txt 2>$out/check_${pid}_thorough.err; echo "exit=$? (tier thorough, restricted to the harnesses the native sweep flagged: $hits)" >> $out/check_${pid}_thorough.txt)
-    if grep -q "^VIOLATION" $out/check_${pid}_thorough.txt; then cp $out/check_${pid}_thorough.txt $out/check_$pid.txt; fi
-  fi
-fi
-if [ -z "$hits" ] || { ! grep -q "^VIOLATION" $out/check_$pid.txt && grep -q "no obligation was generated" $out/check_$pid.txt; }; then
-  (cd $V && python3 check.py $pid --tier $tier > $out/check_$pid.txt 2>$out/check_$pid.err; echo "exit=$? (tier $tier, full check; native sweep flagged nothing the restricted runs could decide)" >> $out/check_$pid.txt)
-fi
-eif [ -n "$hits" ]; then
-  (cd $V && VERIF_ONLY="$hits" python3 check.py $pid --tier $tier > $out/check_$pid.txt 2>$out/check_$pid.err; echo "exit=$? (tier $tier, restricted to the harnesses the native sweep flagged: $hits)" >> $out/check_$pid.txt)
-  if ! grep -q "^VIOLATION" $out/check_$pid.txt && [ "$tier" = quick ]; then
-    # the flagged harnesses may belong to the thorough tier only (larger bounds, slow ones)
-    (cd $V && VERIF_ONLY="$hits" python3 check.py $pid --tier thorough > $out/check_${pid}_thorough.txt 2>$out/check_${pid}_thorough.err; echo "exit=$? (tier thorough, restricted to the harnesses the native sweep flagged: $hits)" >> $out/check_${pid}_thorough.txt)
-    if grep -q "^VIOLATION" $out/check_${pid}_thorough.txt; then cp $out/check_${pid}_thorough.txt $out/check_$pid.txt; fi
-  fi
-fi
-if [ -z "$hits" ] || { ! grep -q "^VIOLATION" $out/check_$pid.txt && grep -q "no obligation was generated" $out/check_$pid.txt; }; then
-  (cd $V && python3 check.py $pid --tier $tier > $out/check_$pid.txt 2>$out/check_$pid.err; echo "exit=$? (tier $tier, full check; native sweep flagged nothing the restricted runs could decide)" >> $out/check_$pid.txt)
-fi
-dif [ -n "$hits" ]; then
-  (cd $V && VERIF_ONLY="$hits" python3 check.py $pid --tier $tier > $out/check_$pid.txt 2>$out/check_$pid.err; echo "exit=$? (tier $tier, restricted to the harnesses the native sweep flagged: $hits)" >> $out/check_$pid.txt)
-  if ! grep -q "^VIOLATION" $out/check_$pid.txt && [ "$tier" = quick ]; then
-    # the flagged harnesses may belong to the thorough tier only (larger bounds, slow ones)
-    (cd $V && VERIF_ONLY="$hits" python3 check.py $pid --tier thorough > $out/check_${pid}_thorough.txt 2>$out/check_${pid}_thorough.err; echo "exit=$? (tier thorough, restricted to the harnesses the native sweep flagged: $hits)" >> $out/check_${pid}_thorough.txt)
-    if grep -q "^VIOLATION" $out/check_${pid}_thorough.txt; then cp $out/check_${pid}_thorough.txt $out/check_$pid.txt; fi
-  fi
-fi
-if [ -z "$hits" ] || { ! grep -q "^VIOLATION" $out/check_$pid.txt && grep -q "no obligation was generated" $out/check_$pid.txt; }; then
-  (cd $V && python3 check.py $pid --tier $tier > $out/check_$pid.txt 2>$out/check_$pid.err; echo "exit=$? (tier $tier, full check; native sweep flagged nothing the restricted runs could decide)" >> $out/check_$pid.txt)
-fi
- if [ -n "$hits" ]; then
-  (cd $V && VERIF_ONLY="$hits" python3 check.py $pid --tier $tier > $out/check_$pid.txt 2>$out/check_$pid.err; echo "exit=$? (tier $tier, restricted to the harnesses the native sweep flagged: $hits)" >> $out/check_$pid.txt)
-  if ! grep -q "^VIOLATION" $out/check_$pid.txt && [ "$tier" = quick ]; then
-    # the flagged harnesses may belong to the thorough tier only (larger bounds, slow ones)
-    (cd $V && VERIF_ONLY="$hits" python3 check.py $pid --tier thorough > $out/check_${pid}_thorough.txt 2>$out/check_${pid}_thorough.err; echo "exit=$? (tier thorough, restricted to the harnesses the native sweep flagged: $hits)" >> $out/check_${pid}_thorough.txt)
-    if grep -q "^VIOLATION" $out/check_${pid}_thorough.txt; then cp $out/check_${pid}_thorough.txt $out/check_$pid.txt; fi
-  fi
-fi
-if [ -z "$hits" ] || { ! grep -q "^VIOLATION" $out/check_$pid.txt && grep -q "no obligation was generated" $out/check_$pid.txt; }; then
-  (cd $V && python3 check.py $pid --tier $tier > $out/check_$pid.txt 2>$out/check_$pid.err; echo "exit=$? (tier $tier, full check; native sweep flagged nothing the restricted runs could decide)" >> $out/check_$pid.txt)
-fi
-'if [ -n "$hits" ]; then
-  (cd $V && VERIF_ONLY="$hits" python3 check.py $pid --tier $tier > $out/check_$pid.txt 2>$out/check_$pid.err; echo "exit=$? (tier $tier, restricted to the harnesses the native sweep flagged: $hits)" >> $out/check_$pid.txt)
-  if ! grep -q "^VIOLATION" $out/check_$pid.txt && [ "$tier" = quick ]; then
-    # the flagged harnesses may belong to the thorough tier only (larger bounds, slow ones)
-    (cd $V && VERIF_ONLY="$hits" python3 check.py $pid --tier thorough > $out/check_${pid}_thorough.txt 2>$out/check_${pid}_thorough.err; echo "exit=$? (tier thorough, restricted to the harnesses the native sweep flagged: $hits)" >> $out/check_${pid}_thorough.txt)
-    if grep -q "^VIOLATION" $out/check_${pid}_thorough.txt; then cp $out/check_${pid}_thorough.txt $out/check_$pid.txt; fi
-  fi
-fi
-if [ -z "$hits" ] || { ! grep -q "^VIOLATION" $out/check_$pid.txt && grep -q "no obligation was generated" $out/check_$pid.txt; }; then
-  (cd $V && python3 check.py $pid --tier $tier > $out/check_$pid.txt 2>$out/check_$pid.err; echo "exit=$? (tier $tier, full check; native sweep flagged nothing the restricted runs could decide)" >> $out/check_$pid.txt)
-fi
-sif [ -n "$hits" ]; then
-  (cd $V && VERIF_ONLY="$hits" python3 check.py $pid --tier $tier > $out/check_$pid.txt 2>$out/check_$pid.err; echo "exit=$? (tier $tier, restricted to the harnesses the native sweep flagged: $hits)" >> $out/check_$pid.txt)
-  if ! grep -q "^VIOLATION" $out/check_$pid.txt && [ "$tier" = quick ]; then
-    # the flagged harnesses may belong to the thorough tier only (larger bounds, slow ones)
-    (cd $V && VERIF_ONLY="$hits" python3 check.py $pid --tier thorough > $out/check_${pid}_thorough.txt 2>$out/check_${pid}_thorough.err; echo "exit=$? (tier thorough, restricted to the harnesses the native sweep flagged: $hits)" >> $out/check_${pid}_thorough.txt)
-    if grep -q "^VIOLATION" $out/check_${pid}_thorough.txt; then cp $out/check_${pid}_thorough.txt $out/check_$pid.txt; fi
-  fi
-fi
-if [ -z "$hits" ] || { ! grep -q "^VIOLATION" $out/check_$pid.txt && grep -q "no obligation was generated" $out/check_$pid.txt; }; then
-  (cd $V && python3 check.py $pid --tier $tier > $out/check_$pid.txt 2>$out/check_$pid.err; echo "exit=$? (tier $tier, full check; native sweep flagged nothing the restricted runs could decide)" >> $out/check_$pid.txt)
-fi
-/if [ -n "$hits" ]; then
-  (cd $V && VERIF_ONLY="$hits" python3 check.py $pid --tier $tier > $out/check_$pid.txt 2>$out/check_$pid.err; echo "exit=$? (tier $tier, restricted to the harnesses the native sweep flagged: $hits)" >> $out/check_$pid.txt)
-  if ! grep -q "^VIOLATION" $out/check_$pid.txt && [ "$tier" = quick ]; then
-    # the flagged harnesses may belong to the thorough tier only (larger bounds, slow ones)
-    (cd $V && VERIF_ONLY="$hits" python3 check.py $pid --tier thorough > $out/check_${pid}_thorough.txt 2>$out/check_${pid}_thorough.err; echo "exit=$? (tier thorough, restricted to the harnesses the native sweep flagged: $hits)" >> $out/check_${pid}_thorough.txt)
-    if grep -q "^VIOLATION" $out/check_${pid}_thorough.txt; then cp $out/check_${pid}_thorough.txt $out/check_$pid.txt; fi
-  fi
-fi
-if [ -z "$hits" ] || { ! grep -q "^VIOLATION" $out/check_$pid.txt && grep -q "no obligation was generated" $out/check_$pid.txt; }; then
-  (cd $V && python3 check.py $pid --tier $tier > $out/check_$pid.txt 2>$out/check_$pid.err; echo "exit=$? (tier $tier, full check; native sweep flagged nothing the restricted runs could decide)" >> $out/check_$pid.txt)
-fi
-^if [ -n "$hits" ]; then
-  (cd $V && VERIF_ONLY="$hits" python3 check.py $pid --tier $tier > $out/check_$pid.txt 2>$out/check_$pid.err; echo "exit=$? (tier $tier, restricted to the harnesses the native sweep flagged: $hits)" >> $out/check_$pid.txt)
-  if ! grep -q "^VIOLATION" $out/check_$pid.txt && [ "$tier" = quick ]; then
-    # the flagged harnesses may belong to the thorough tier only (larger bounds, slow ones)
-    (cd $V && VERIF_ONLY="$hits" python3 check.py $pid --tier thorough > $out/check_${pid}_thorough.txt 2>$out/check_${pid}_thorough.err; echo "exit=$? (tier thorough, restricted to the harnesses the native sweep flagged: $hits)" >> $out/check_${pid}_thorough.txt)
-    if grep -q "^VIOLATION" $out/check_${pid}_thorough.txt; then cp $out/check_${pid}_thorough.txt $out/check_$pid.txt; fi
-  fi
-fi
-if [ -z "$hits" ] || { ! grep -q "^VIOLATION" $out/check_$pid.txt && grep -q "no obligation was generated" $out/check_$pid.txt; }; then
-  (cd $V && python3 check.py $pid --tier $tier > $out/check_$pid.txt 2>$out/check_$pid.err; echo "exit=$? (tier $tier, full check; native sweep flagged nothing the restricted runs could decide)" >> $out/check_$pid.txt)
-fi
-Sif [ -n "$hits" ]; then
-  (cd $V && VERIF_ONLY="$hits" python3 check.py $pid --tier $tier > $out/check_$pid.txt 2>$out/check_$pid.err; echo "exit=$? (tier $tier, restricted to the harnesses the native sweep flagged: $hits)" >> $out/check_$pid.txt)
-  if ! grep -q "^VIOLATION" $out/check_$pid.txt && [ "$tier" = quick ]; then
-    # the flagged harnesses may belong to the thorough tier only (larger bounds, slow ones)
-    (cd $V && VERIF_ONLY="$hits" python3 check.py $pid --tier thorough > $out/check_${pid}_thorough.txt 2>$out/check_${pid}_thorough.err; echo "exit=$? (tier thorough, restricted to the harnesses the native sweep flagged: $hits)" >> $out/check_${pid}_thorough.txt)
-    if grep -q "^VIOLATION" $out/check_${pid}_thorough.txt; then cp $out/check_${pid}_thorough.txt $out/check_$pid.txt; fi
-  fi
-fi
-if [ -z "$hits" ] || { ! grep -q "^VIOLATION" $out/check_$pid.txt && grep -q "no obligation was generated" $out/check_$pid.txt; }; then
-  (cd $V && python3 check.py $pid --tier $tier > $out/check_$pid.txt 2>$out/check_$pid.err; echo "exit=$? (tier $tier, full check; native sweep flagged nothing the restricted runs could decide)" >> $out/check_$pid.txt)
-fi
-Wif [ -n "$hits" ]; then
-  (cd $V && VERIF_ONLY="$hits" python3 check.py $pid --tier $tier > $out/check_$pid.txt 2>$out/check_$pid.err; echo "exit=$? (tier $tier, restricted to the harnesses the native sweep flagged: $hits)" >> $out/check_$pid.txt)
-  if ! grep -q "^VIOLATION" $out/check_$pid.txt && [ "$tier" = quick ]; then
-    # the flagged harnesses may belong to the thorough tier only (larger bounds, slow ones)
-    (cd $V && VERIF_ONLY="$hits" python3 check.py $pid --tier thorough > $out/check_${pid}_thorough.txt 2>$out/check_${pid}_thorough.err; echo "exit=$? (tier thorough, restricted to the harnesses the native sweep flagged: $hits)" >> $out/check_${pid}_thorough.txt)
-    if grep -q "^VIOLATION" $out/check_${pid}_thorough.txt; then cp $out/check_${pid}_thorough.txt $out/check_$pid.txt; fi
-  fi
-fi
-if [ -z "$hits" ] || { ! grep -q "^VIOLATION" $out/check_$pid.txt && grep -q "no obligation was generated" $out/check_$pid.txt; }; then
-  (cd $V && python3 check.py $pid --tier $tier > $out/check_$pid.txt 2>$out/check_$pid.err; echo "exit=$? (tier $tier, full check; native sweep flagged nothing the restricted runs could decide)" >> $out/check_$pid.txt)
-fi
-Eif [ -n "$hits" ]; then
-  (cd $V && VERIF_ONLY="$hits" python3 check.py $pid --tier $tier > $out/check_$pid.txt 2>$out/check_$pid.err; echo "exit=$? (tier $tier, restricted to the harnesses the native sweep flagged: $hits)" >> $out/check_$pid.txt)
-  if ! grep -q "^VIOLATION" $out/check_$pid.txt && [ "$tier" = quick ]; then
-    # the flagged harnesses may belong to the thorough tier only (larger bounds, slow ones)
-    (cd $V && VERIF_ONLY="$hits" python3 check.py $pid --tier thorough > $out/check_${pid}_thorough.txt 2>$out/check_${pid}_thorough.err; echo "exit=$? (tier thorough, restricted to the harnesses the native sweep flagged: $hits)" >> $out/check_${pid}_thorough.txt)
-    if grep -q "^VIOLATION" $out/check_${pid}_thorough.txt; then cp $out/check_${pid}_thorough.txt $out/check_$pid.txt; fi
-  fi
-fi
-if [ -z "$hits" ] || { ! grep -q "^VIOLATION" $out/check_$pid.txt && grep -q "no obligation was generated" $out/check_$pid.txt; }; then
-  (cd $V && python3 check.py $pid --tier $tier > $out/check_$pid.txt 2>$out/check_$pid.err; echo "exit=$? (tier $tier, full check; native sweep flagged nothing the restricted runs could decide)" >> $out/check_$pid.txt)
-fi
-Eif [ -n "$hits" ]; then
-  (cd $V && VERIF_ONLY="$hits" python3 check.py $pid --tier $tier > $out/check_$pid.txt 2>$out/check_$pid.err; echo "exit=$? (tier $tier, restricted to the harnesses the native sweep flagged: $hits)" >> $out/check_$pid.txt)
-  if ! grep -q "^VIOLATION" $out/check_$pid.txt && [ "$tier" = quick ]; then
-    # the flagged harnesses may belong to the thorough tier only (larger bounds, slow ones)
-    (cd $V && VERIF_ONLY="$hits" python3 check.py $pid --tier thorough > $out/check_${pid}_thorough.txt 2>$out/check_${pid}_thorough.err; echo "exit=$? (tier thorough, restricted to the harnesses the native sweep flagged: $hits)" >> $out/check_${pid}_thorough.txt)
-    if grep -q "^VIOLATION" $out/check_${pid}_thorough.txt; then cp $out/check_${pid}_thorough.txt $out/check_$pid.txt; fi
-  fi
-fi
-if [ -z "$hits" ] || { ! grep -q "^VIOLATION" $out/check_$pid.txt && grep -q "no obligation was generated" $out/check_$pid.txt; }; then
-  (cd $V && python3 check.py $pid --tier $tier > $out/check_$pid.txt 2>$out/check_$pid.err; echo "exit=$? (tier $tier, full check; native sweep flagged nothing the restricted runs could decide)" >> $out/check_$pid.txt)
-fi
-Pif [ -n "$hits" ]; then
-  (cd $V && VERIF_ONLY="$hits" python3 check.py $pid --tier $tier > $out/check_$pid.txt 2>$out/check_$pid.err; echo "exit=$? (tier $tier, restricted to the harnesses the native sweep flagged: $hits)" >> $out/check_$pid.txt)
-  if ! grep -q "^VIOLATION" $out/check_$pid.txt && [ "$tier" = quick ]; then
-    # the flagged harnesses may belong to the thorough tier only (larger bounds, slow ones)
-    (cd $V && VERIF_ONLY="$hits" python3 check.py $pid --tier thorough > $out/check_${pid}_thorough.txt 2>$out/check_${pid}_thorough.err; echo "exit=$? (tier thorough, restricted to the harnesses the native sweep flagged: $hits)" >> $out/check_${pid}_thorough.txt)
-    if grep -q "^VIOLATION" $out/check_${pid}_thorough.txt; then cp $out/check_${pid}_thorough.txt $out/check_$pid.txt; fi
-  fi
-fi
-if [ -z "$hits" ] || { ! grep -q "^VIOLATION" $out/check_$pid.txt && grep -q "no obligation was generated" $out/check_$pid.txt; }; then
-  (cd $V && python3 check.py $pid --tier $tier > $out/check_$pid.txt 2>$out/check_$pid.err; echo "exit=$? (tier $tier, full check; native sweep flagged nothing the restricted runs could decide)" >> $out/check_$pid.txt)
-fi
--if [ -n "$hits" ]; then
-  (cd $V && VERIF_ONLY="$hits" python3 check.py $pid --tier $tier > $out/check_$pid.txt 2>$out/check_$pid.err; echo "exit=$? (tier $tier, restricted to the harnesses the native sweep flagged: $hits)" >> $out/check_$pid.txt)
-  if ! grep -q "^VIOLATION" $out/check_$pid.txt && [ "$tier" = quick ]; then
-    # the flagged harnesses may belong to the thorough tier only (larger bounds, slow ones)
-    (cd $V && VERIF_ONLY="$hits" python3 check.py $pid --tier thorough > $out/check_${pid}_thorough.txt 2>$out/check_${pid}_thorough.err; echo "exit=$? (tier thorough, restricted to the harnesses the native sweep flagged: $hits)" >> $out/check_${pid}_thorough.txt)
-    if grep -q "^VIOLATION" $out/check_${pid}_thorough.txt; then cp $out/check_${pid}_thorough.txt $out/check_$pid.txt; fi
-  fi
-fi
-if [ -z "$hits" ] || { ! grep -q "^VIOLATION" $out/check_$pid.txt && grep -q "no obligation was generated" $out/check_$pid.txt; }; then
-  (cd $V && python3 check.py $pid --tier $tier > $out/check_$pid.txt 2>$out/check_$pid.err; echo "exit=$? (tier $tier, full check; native sweep flagged nothing the restricted runs could decide)" >> $out/check_$pid.txt)
-fi
-Mif [ -n "$hits" ]; then
-  (cd $V && VERIF_ONLY="$hits" python3 check.py $pid --tier $tier > $out/check_$pid.txt 2>$out/check_$pid.err; echo "exit=$? (tier $tier, restricted to the harnesses the native sweep flagged: $hits)" >> $out/check_$pid.txt)
-  if ! grep -q "^VIOLATION" $out/check_$pid.txt && [ "$tier" = quick ]; then
-    # the flagged harnesses may belong to the thorough tier only (larger bounds, slow ones)
-    (cd $V && VERIF_ONLY="$hits" python3 check.py $pid --tier thorough > $out/check_${pid}_thorough.txt 2>$out/check_${pid}_thorough.err; echo "exit=$? (tier thorough, restricted to the harnesses the native sweep flagged: $hits)" >> $out/check_${pid}_thorough.txt)
-    if grep -q "^VIOLATION" $out/check_${pid}_thorough.txt; then cp $out/check_${pid}_thorough.txt $out/check_$pid.txt; fi
-  fi
-fi
-if [ -z "$hits" ] || { ! grep -q "^VIOLATION" $out/check_$pid.txt && grep -q "no obligation was generated" $out/check_$pid.txt; }; then
-  (cd $V && python3 check.py $pid --tier $tier > $out/check_$pid.txt 2>$out/check_$pid.err; echo "exit=$? (tier $tier, full check; native sweep flagged nothing the restricted runs could decide)" >> $out/check_$pid.txt)
-fi
-Aif [ -n "$hits" ]; then
-  (cd $V && VERIF_ONLY="$hits" python3 check.py $pid --tier $tier > $out/check_$pid.txt 2>$out/check_$pid.err; echo "exit=$? (tier $tier, restricted to the harnesses the native sweep flagged: $hits)" >> $out/check_$pid.txt)
-  if ! grep -q "^VIOLATION" $out/check_$pid.txt && [ "$tier" = quick ]; then
-    # the flagged harnesses may belong to the thorough tier only (larger bounds, slow ones)
-    (cd $V && VERIF_ONLY="$hits" python3 check.py $pid --tier thorough > $out/check_${pid}_thorough.txt 2>$out/check_${pid}_thorough.err; echo "exit=$? (tier thorough, restricted to the harnesses the native sweep flagged: $hits)" >> $out/check_${pid}_thorough.txt)
-    if grep -q "^VIOLATION" $out/check_${pid}_thorough.txt; then cp $out/check_${pid}_thorough.txt $out/check_$pid.txt; fi
-  fi
-fi
-if [ -z "$hits" ] || { ! grep -q "^VIOLATION" $out/check_$pid.txt && grep -q "no obligation was generated" $out/check_$pid.txt; }; then
-  (cd $V && python3 check.py $pid --tier $tier > $out/check_$pid.txt 2>$out/check_$pid.err; echo "exit=$? (tier $tier, full check; native sweep flagged nothing the restricted runs could decide)" >> $out/check_$pid.txt)
-fi
-Pif [ -n "$hits" ]; then
-  (cd $V && VERIF_ONLY="$hits" python3 check.py $pid --tier $tier > $out/check_$pid.txt 2>$out/check_$pid.err; echo "exit=$? (tier $tier, restricted to the harnesses the native sweep flagged: $hits)" >> $out/check_$pid.txt)
-  if ! grep -q "^VIOLATION" $out/check_$pid.txt && [ "$tier" = quick ]; then
-    # the flagged harnesses may belong to the thorough tier only (larger bounds, slow ones)
-    (cd $V && VERIF_ONLY="$hits" python3 check.py $pid --tier thorough > $out/check_${pid}_thorough.txt 2>$out/check_${pid}_thorough.err; echo "exit=$? (tier thorough, restricted to the harnesses the native sweep flagged: $hits)" >> $out/check_${pid}_thorough.txt)
-    if grep -q "^VIOLATION" $out/check_${pid}_thorough.txt; then cp $out/check_${pid}_thorough.txt $out/check_$pid.txt; fi
-  fi
-fi
-if [ -z "$hits" ] || { ! grep -q "^VIOLATION" $out/check_$pid.txt && grep -q "no obligation was generated" $out/check_$pid.txt; }; then
-  (cd $V && python3 check.py $pid --tier $tier > $out/check_$pid.txt 2>$out/check_$pid.err; echo "exit=$? (tier $tier, full check; native sweep flagged nothing the restricted runs could decide)" >> $out/check_$pid.txt)
-fi
- if [ -n "$hits" ]; then
-  (cd $V && VERIF_ONLY="$hits" python3 check.py $pid --tier $tier > $out/check_$pid.txt 2>$out/check_$pid.err; echo "exit=$? (tier $tier, restricted to the harnesses the native sweep flagged: $hits)" >> $out/check_$pid.txt)
-  if ! grep -q "^VIOLATION" $out/check_$pid.txt && [ "$tier" = quick ]; then
-    # the flagged harnesses may belong to the thorough tier only (larger bounds, slow ones)
-    (cd $V && VERIF_ONLY="$hits" python3 check.py $pid --tier thorough > $out/check_${pid}_thorough.txt 2>$out/check_${pid}_thorough.err; echo "exit=$? (tier thorough, restricted to the harnesses the native sweep flagged: $hits)" >> $out/check_${pid}_thorough.txt)
-    if grep -q "^VIOLATION" $out/check_${pid}_thorough.txt; then cp $out/check_${pid}_thorough.txt $out/check_$pid.txt; fi
-  fi
-fi
-if [ -z "$hits" ] || { ! grep -q "^VIOLATION" $out/check_$pid.txt && grep -q "no obligation was generated" $out/check_$pid.txt; }; then
-  (cd $V && python3 check.py $pid --tier $tier > $out/check_$pid.txt 2>$out/check_$pid.err; echo "exit=$? (tier $tier, full check; native sweep flagged nothing the restricted runs could decide)" >> $out/check_$pid.txt)
-fi
-/if [ -n "$hits" ]; then
-  (cd $V && VERIF_ONLY="$hits" python3 check.py $pid --tier $tier > $out/check_$pid.txt 2>$out/check_$pid.err; echo "exit=$? (tier $tier, restricted to the harnesses the native sweep flagged: $hits)" >> $out/check_$pid.txt)
-  if ! grep -q "^VIOLATION" $out/check_$pid.txt && [ "$tier" = quick ]; then
-    # the flagged harnesses may belong to the thorough tier only (larger bounds, slow ones)
-    (cd $V && VERIF_ONLY="$hits" python3 check.py $pid --tier thorough > $out/check_${pid}_thorough.txt 2>$out/check_${pid}_thorough.err; echo "exit=$? (tier thorough, restricted to the harnesses the native sweep flagged: $hits)" >> $out/check_${pid}_thorough.txt)
-    if grep -q "^VIOLATION" $out/check_${pid}_thorough.txt; then cp $out/check_${pid}_thorough.txt $out/check_$pid.txt; fi
-  fi
-fi
-if [ -z "$hits" ] || { ! grep -q "^VIOLATION" $out/check_$pid.txt && grep -q "no obligation was generated" $out/check_$pid.txt; }; then
-  (cd $V && python3 check.py $pid --tier $tier > $out/check_$pid.txt 2>$out/check_$pid.err; echo "exit=$? (tier $tier, full check; native sweep flagged nothing the restricted runs could decide)" >> $out/check_$pid.txt)
-fi
-/if [ -n "$hits" ]; then
-  (cd $V && VERIF_ONLY="$hits" python3 check.py $pid --tier $tier > $out/check_$pid.txt 2>$out/check_$pid.err; echo "exit=$? (tier $tier, restricted to the harnesses the native sweep flagged: $hits)" >> $out/check_$pid.txt)
-  if ! grep -q "^VIOLATION" $out/check_$pid.txt && [ "$tier" = quick ]; then
-    # the flagged harnesses may belong to the thorough tier only (larger bounds, slow ones)
-    (cd $V && VERIF_ONLY="$hits" python3 check.py $pid --tier thorough > $out/check_${pid}_thorough.txt 2>$out/check_${pid}_thorough.err; echo "exit=$? (tier thorough, restricted to the harnesses the native sweep flagged: $hits)" >> $out/check_${pid}_thorough.txt)
-    if grep -q "^VIOLATION" $out/check_${pid}_thorough.txt; then cp $out/check_${pid}_thorough.txt $out/check_$pid.txt; fi
-  fi
-fi
-if [ -z "$hits" ] || { ! grep -q "^VIOLATION" $out/check_$pid.txt && grep -q "no obligation was generated" $out/check_$pid.txt; }; then
-  (cd $V && python3 check.py $pid --tier $tier > $out/check_$pid.txt 2>$out/check_$pid.err; echo "exit=$? (tier $tier, full check; native sweep flagged nothing the restricted runs could decide)" >> $out/check_$pid.txt)
-fi
-'if [ -n "$hits" ]; then
-  (cd $V && VERIF_ONLY="$hits" python3 check.py $pid --tier $tier > $out/check_$pid.txt 2>$out/check_$pid.err; echo "exit=$? (tier $tier, restricted to the harnesses the native sweep flagged: $hits)" >> $out/check_$pid.txt)
-  if ! grep -q "^VIOLATION" $out/check_$pid.txt && [ "$tier" = quick ]; then
-    # the flagged harnesses may belong to the thorough tier only (larger bounds, slow ones)
-    (cd $V && VERIF_ONLY="$hits" python3 check.py $pid --tier thorough > $out/check_${pid}_thorough.txt 2>$out/check_${pid}_thorough.err; echo "exit=$? (tier thorough, restricted to the harnesses the native sweep flagged: $hits)" >> $out/check_${pid}_thorough.txt)
-    if grep -q "^VIOLATION" $out/check_${pid}_thorough.txt; then cp $out/check_${pid}_thorough.txt $out/check_$pid.txt; fi
-  fi
-fi
-if [ -z "$hits" ] || { ! grep -q "^VIOLATION" $out/check_$pid.txt && grep -q "no obligation was generated" $out/check_$pid.txt; }; then
-  (cd $V && python3 check.py $pid --tier $tier > $out/check_$pid.txt 2>$out/check_$pid.err; echo "exit=$? (tier $tier, full check; native sweep flagged nothing the restricted runs could decide)" >> $out/check_$pid.txt)
-fi
- if [ -n "$hits" ]; then
-  (cd $V && VERIF_ONLY="$hits" python3 check.py $pid --tier $tier > $out/check_$pid.txt 2>$out/check_$pid.err; echo "exit=$? (tier $tier, restricted to the harnesses the native sweep flagged: $hits)" >> $out/check_$pid.txt)
-  if ! grep -q "^VIOLATION" $out/check_$pid.txt && [ "$tier" = quick ]; then
-    # the flagged harnesses may belong to the thorough tier only (larger bounds, slow ones)
-    (cd $V && VERIF_ONLY="$hits" python3 check.py $pid --tier thorough > $out/check_${pid}_thorough.txt 2>$out/check_${pid}_thorough.err; echo "exit=$? (tier thorough, restricted to the harnesses the native sweep flagged: $hits)" >> $out/check_${pid}_thorough.txt)
-    if grep -q "^VIOLATION" $out/check_${pid}_thorough.txt; then cp $out/check_${pid}_thorough.txt $out/check_$pid.txt; fi
-  fi
-fi
-if [ -z "$hits" ] || { ! grep -q "^VIOLATION" $out/check_$pid.txt && grep -q "no obligation was generated" $out/check_$pid.txt; }; then
-  (cd $V && python3 check.py $pid --tier $tier > $out/check_$pid.txt 2>$out/check_$pid.err; echo "exit=$? (tier $tier, full check; native sweep flagged nothing the restricted runs could decide)" >> $out/check_$pid.txt)
-fi
->if [ -n "$hits" ]; then
-  (cd $V && VERIF_ONLY="$hits" python3 check.py $pid --tier $tier > $out/check_$pid.txt 2>$out/check_$pid.err; echo "exit=$? (tier $tier, restricted to the harnesses the native sweep flagged: $hits)" >> $out/check_$pid.txt)
-  if ! grep -q "^VIOLATION" $out/check_$pid.txt && [ "$tier" = quick ]; then
-    # the flagged harnesses may belong to the thorough tier only (larger bounds, slow ones)
-    (cd $V && VERIF_ONLY="$hits" python3 check.py $pid --tier thorough > $out/check_${pid}_thorough.txt 2>$out/check_${pid}_thorough.err; echo "exit=$? (tier thorough, restricted to the harnesses the native sweep flagged: $hits)" >> $out/check_${pid}_thorough.txt)
-    if grep -q "^VIOLATION" $out/check_${pid}_thorough.txt; then cp $out/check_${pid}_thorough.txt $out/check_$pid.txt; fi
-  fi
-fi
-if [ -z "$hits" ] || { ! grep -q "^VIOLATION" $out/check_$pid.txt && grep -q "no obligation was generated" $out/check_$pid.txt; }; then
-  (cd $V && python3 check.py $pid --tier $tier > $out/check_$pid.txt 2>$out/check_$pid.err; echo "exit=$? (tier $tier, full check; native sweep flagged nothing the restricted runs could decide)" >> $out/check_$pid.txt)
-fi
- if [ -n "$hits" ]; then
-  (cd $V && VERIF_ONLY="$hits" python3 check.py $pid --tier $tier > $out/check_$pid.txt 2>$out/check_$pid.err; echo "exit=$? (tier $tier, restricted to the harnesses the native sweep flagged: $hits)" >> $out/check_$pid.txt)
-  if ! grep -q "^VIOLATION" $out/check_$pid.txt && [ "$tier" = quick ]; then
-    # the flagged harnesses may belong to the thorough tier only (larger bounds, slow ones)
-    (cd $V && VERIF_ONLY="$hits" python3 check.py $pid --tier thorough > $out/check_${pid}_thorough.txt 2>$out/check_${pid}_thorough.err; echo "exit=$? (tier thorough, restricted to the harnesses the native sweep flagged: $hits)" >> $out/check_${pid}_thorough.txt)
-    if grep -q "^VIOLATION" $out/check_${pid}_thorough.txt; then cp $out/check_${pid}_thorough.txt $out/check_$pid.txt; fi
-  fi
-fi
-if [ -z "$hits" ] || { ! grep -q "^VIOLATION" $out/check_$pid.txt && grep -q "no obligation was generated" $out/check_$pid.txt; }; then
-  (cd $V && python3 check.py $pid --tier $tier > $out/check_$pid.txt 2>$out/check_$pid.err; echo "exit=$? (tier $tier, full check; native sweep flagged nothing the restricted runs could decide)" >> $out/check_$pid.txt)
-fi
-/if [ -n "$hits" ]; then
-  (cd $V && VERIF_ONLY="$hits" python3 check.py $pid --tier $tier > $out/check_$pid.txt 2>$out/check_$pid.err; echo "exit=$? (tier $tier, restricted to the harnesses the native sweep flagged: $hits)" >> $out/check_$pid.txt)
-  if ! grep -q "^VIOLATION" $out/check_$pid.txt && [ "$tier" = quick ]; then
-    # the flagged harnesses may belong to the thorough tier only (larger bounds, slow ones)
-    (cd $V && VERIF_ONLY="$hits" python3 check.py $pid --tier thorough > $out/check_${pid}_thorough.txt 2>$out/check_${pid}_thorough.err; echo "exit=$? (tier thorough, restricted to the harnesses the native sweep flagged: $hits)" >> $out/check_${pid}_thorough.txt)
-    if grep -q "^VIOLATION" $out/check_${pid}_thorough.txt; then cp $out/check_${pid}_thorough.txt $out/check_$pid.txt; fi
-  fi
-fi
-if [ -z "$hits" ] || { ! grep -q "^VIOLATION" $out/check_$pid.txt && grep -q "no obligation was generated" $out/check_$pid.txt; }; then
-  (cd $V && python3 check.py $pid --tier $tier > $out/check_$pid.txt 2>$out/check_$pid.err; echo "exit=$? (tier $tier, full check; native sweep flagged nothing the restricted runs could decide)" >> $out/check_$pid.txt)
-fi
-tif [ -n "$hits" ]; then
-  (cd $V && VERIF_ONLY="$hits" python3 check.py $pid --tier $tier > $out/check_$pid.txt 2>$out/check_$pid.err; echo "exit=$? (tier $tier, restricted to the harnesses the native sweep flagged: $hits)" >> $out/check_$pid.txt)
-  if ! grep -q "^VIOLATION" $out/check_$pid.txt && [ "$tier" = quick ]; then
-    # the flagged harnesses may belong to the thorough tier only (larger bounds, slow ones)
-    (cd $V && VERIF_ONLY="$hits" python3 check.py $pid --tier thorough > $out/check_${pid}_thorough.txt 2>$out/check_${pid}_thorough.err; echo "exit=$? (tier thorough, restricted to the harnesses the native sweep flagged: $hits)" >> $out/check_${pid}_thorough.txt)
-    if grep -q "^VIOLATION" $out/check_${pid}_thorough.txt; then cp $out/check_${pid}_thorough.txt $out/check_$pid.txt; fi
-  fi
-fi
-if [ -z "$hits" ] || { ! grep -q "^VIOLATION" $out/check_$pid.txt && grep -q "no obligation was generated" $out/check_$pid.txt; }; then
-  (cd $V && python3 check.py $pid --tier $tier > $out/check_$pid.txt 2>$out/check_$pid.err; echo "exit=$? (tier $tier, full check; native sweep flagged nothing the restricted runs could decide)" >> $out/check_$pid.txt)
-fi
-mif [ -n "$hits" ]; then
-  (cd $V && VERIF_ONLY="$hits" python3 check.py $pid --tier $tier > $out/check_$pid.txt 2>$out/check_$pid.err; echo "exit=$? (tier $tier, restricted to the harnesses the native sweep flagged: $hits)" >> $out/check_$pid.txt)
-  if ! grep -q "^VIOLATION" $out/check_$pid.txt && [ "$tier" = quick ]; then
-    # the flagged harnesses may belong to the thorough tier only (larger bounds, slow ones)
-    (cd $V && VERIF_ONLY="$hits" python3 check.py $pid --tier thorough > $out/check_${pid}_thorough.txt 2>$out/check_${pid}_thorough.err; echo "exit=$? (tier thorough, restricted to the harnesses the native sweep flagged: $hits)" >> $out/check_${pid}_thorough.txt)
-    if grep -q "^VIOLATION" $out/check_${pid}_thorough.txt; then cp $out/check_${pid}_thorough.txt $out/check_$pid.txt; fi
-  fi
-fi
-if [ -z "$hits" ] || { ! grep -q "^VIOLATION" $out/check_$pid.txt && grep -q "no obligation was generated" $out/check_$pid.txt; }; then
-  (cd $V && python3 check.py $pid --tier $tier > $out/check_$pid.txt 2>$out/check_$pid.err; echo "exit=$? (tier $tier, full check; native sweep flagged nothing the restricted runs could decide)" >> $out/check_$pid.txt)
-fi
-pif [ -n "$hits" ]; then
-  (cd $V && VERIF_ONLY="$hits" python3 check.py $pid --tier $tier > $out/check_$pid.txt 2>$out/check_$pid.err; echo "exit=$? (tier $tier, restricted to the harnesses the native sweep flagged: $hits)" >> $out/check_$pid.txt)
-  if ! grep -q "^VIOLATION" $out/check_$pid.txt && [ "$tier" = quick ]; then
-    # the flagged harnesses may belong to the thorough tier only (larger bounds, slow ones)
-    (cd $V && VERIF_ONLY="$hits" python3 check.py $pid --tier thorough > $out/check_${pid}_thorough.txt 2>$out/check_${pid}_thorough.err; echo "exit=$? (tier thorough, restricted to the harnesses the native sweep flagged: $hits)" >> $out/check_${pid}_thorough.txt)
-    if grep -q "^VIOLATION" $out/check_${pid}_thorough.txt; then cp $out/check_${pid}_thorough.txt $out/check_$pid.txt; fi
-  fi
-fi
-if [ -z "$hits" ] || { ! grep -q "^VIOLATION" $out/check_$pid.txt && grep -q "no obligation was generated" $out/check_$pid.txt; }; then
-  (cd $V && python3 check.py $pid --tier $tier > $out/check_$pid.txt 2>$out/check_$pid.err; echo "exit=$? (tier $tier, full check; native sweep flagged nothing the restricted runs could decide)" >> $out/check_$pid.txt)
-fi
-/if [ -n "$hits" ]; then
-  (cd $V && VERIF_ONLY="$hits" python3 check.py $pid --tier $tier > $out/check_$pid.txt 2>$out/check_$pid.err; echo "exit=$? (tier $tier, restricted to the harnesses the native sweep flagged: $hits)" >> $out/check_$pid.txt)
-  if ! grep -q "^VIOLATION" $out/check_$pid.txt && [ "$tier" = quick ]; then
-    # the flagged harnesses may belong to the thorough tier only (larger bounds, slow ones)
-    (cd $V && VERIF_ONLY="$hits" python3 check.py $pid --tier thorough > $out/check_${pid}_thorough.txt 2>$out/check_${pid}_thorough.err; echo "exit=$? (tier thorough, restricted to the harnesses the native sweep flagged: $hits)" >> $out/check_${pid}_thorough.txt)
-    if grep -q "^VIOLATION" $out/check_${pid}_thorough.txt; then cp $out/check_${pid}_thorough.txt $out/check_$pid.txt; fi
-  fi
-fi
-if [ -z "$hits" ] || { ! grep -q "^VIOLATION" $out/check_$pid.txt && grep -q "no obligation was generated" $out/check_$pid.txt; }; then
-  (cd $V && python3 check.py $pid --tier $tier > $out/check_$pid.txt 2>$out/check_$pid.err; echo "exit=$? (tier $tier, full check; native sweep flagged nothing the restricted runs could decide)" >> $out/check_$pid.txt)
-fi
-sif [ -n "$hits" ]; then
-  (cd $V && VERIF_ONLY="$hits" python3 check.py $pid --tier $tier > $out/check_$pid.txt 2>$out/check_$pid.err; echo "exit=$? (tier $tier, restricted to the harnesses the native sweep flagged: $hits)" >> $out/check_$pid.txt)
-  if ! grep -q "^VIOLATION" $out/check_$pid.txt && [ "$tier" = quick ]; then
-    # the flagged harnesses may belong to the thorough tier only (larger bounds, slow ones)
-    (cd $V && VERIF_ONLY="$hits" python3 check.py $pid --tier thorough > $out/check_${pid}_thorough.txt 2>$out/check_${pid}_thorough.err; echo "exit=$? (tier thorough, restricted to the harnesses the native sweep flagged: $hits)" >> $out/check_${pid}_thorough.txt)
-    if grep -q "^VIOLATION" $out/check_${pid}_thorough.txt; then cp $out/check_${pid}_thorough.txt $out/check_$pid.txt; fi
-  fi
-fi
-if [ -z "$hits" ] || { ! grep -q "^VIOLATION" $out/check_$pid.txt && grep -q "no obligation was generated" $out/check_$pid.txt; }; then
-  (cd $V && python3 check.py $pid --tier $tier > $out/check_$pid.txt 2>$out/check_$pid.err; echo "exit=$? (tier $tier, full check; native sweep flagged nothing the restricted runs could decide)" >> $out/check_$pid.txt)
-fi
-eif [ -n "$hits" ]; then
-  (cd $V && VERIF_ONLY="$hits" python3 check.py $pid --tier $tier > $out/check_$pid.txt 2>$out/check_$pid.err; echo "exit=$? (tier $tier, restricted to the harnesses the native sweep flagged: $hits)" >> $out/check_$pid.txt)
-  if ! grep -q "^VIOLATION" $out/check_$pid.txt && [ "$tier" = quick ]; then
-    # the flagged harnesses may belong to the thorough tier only (larger bounds, slow ones)
-    (cd $V && VERIF_ONLY="$hits" python3 check.py $pid --tier thorough > $out/check_${pid}_thorough.txt 2>$out/check_${pid}_thorough.err; echo "exit=$? (tier thorough, restricted to the harnesses the native sweep flagged: $hits)" >> $out/check_${pid}_thorough.txt)
-    if grep -q "^VIOLATION" $out/check_${pid}_thorough.txt; then cp $out/check_${pid}_thorough.txt $out/check_$pid.txt; fi
-  fi
-fi
-if [ -z "$hits" ] || { ! grep -q "^VIOLATION" $out/check_$pid.txt && grep -q "no obligation was generated" $out/check_$pid.txt; }; then
-  (cd $V && python3 check.py $pid --tier $tier > $out/check_$pid.txt 2>$out/check_$pid.err; echo "exit=$? (tier $tier, full check; native sweep flagged nothing the restricted runs could decide)" >> $out/check_$pid.txt)
-fi
-eif [ -n "$hits" ]; then
-  (cd $V && VERIF_ONLY="$hits" python3 check.py $pid --tier $tier > $out/check_$pid.txt 2>$out/check_$pid.err; echo "exit=$? (tier $tier, restricted to the harnesses the native sweep flagged: $hits)" >> $out/check_$pid.txt)
-  if ! grep -q "^VIOLATION" $out/check_$pid.txt && [ "$tier" = quick ]; then
-    # the flagged harnesses may belong to the thorough tier only (larger bounds, slow ones)
-    (cd $V && VERIF_ONLY="$hits" python3 check.py $pid --tier thorough > $out/check_${pid}_thorough.txt 2>$out/check_${pid}_thorough.err; echo "exit=$? (tier thorough, restricted to the harnesses the native sweep flagged: $hits)" >> $out/check_${pid}_thorough.txt)
-    if grep -q "^VIOLATION" $out/check_${pid}_thorough.txt; then cp $out/check_${pid}_thorough.txt $out/check_$pid.txt; fi
-  fi
-fi
-if [ -z "$hits" ] || { ! grep -q "^VIOLATION" $out/check_$pid.txt && grep -q "no obligation was generated" $out/check_$pid.txt; }; then
-  (cd $V && python3 check.py $pid --tier $tier > $out/check_$pid.txt 2>$out/check_$pid.err; echo "exit=$? (tier $tier, full check; native sweep flagged nothing the restricted runs could decide)" >> $out/check_$pid.txt)
-fi
-dif [ -n "$hits" ]; then
-  (cd $V && VERIF_ONLY="$hits" python3 check.py $pid --tier $tier > $out/check_$pid.txt 2>$out/check_$pid.err; echo "exit=$? (tier $tier, restricted to the harnesses the native sweep flagged: $hits)" >> $out/check_$pid.txt)
-  if ! grep -q "^VIOLATION" $out/check_$pid.txt && [ "$tier" = quick ]; then
-    # the flagged harnesses may belong to the thorough tier only (larger bounds, slow ones)
-    (cd $V && VERIF_ONLY="$hits" python3 check.py $pid --tier thorough > $out/check_${pid}_thorough.txt 2>$out/check_${pid}_thorough.err; echo "exit=$? (tier thorough, restricted to the harnesses the native sweep flagged: $hits)" >> $out/check_${pid}_thorough.txt)
-    if grep -q "^VIOLATION" $out/check_${pid}_thorough.txt; then cp $out/check_${pid}_thorough.txt $out/check_$pid.txt; fi
-  fi
-fi
-if [ -z "$hits" ] || { ! grep -q "^VIOLATION" $out/check_$pid.txt && grep -q "no obligation was generated" $out/check_$pid.txt; }; then
-  (cd $V && python3 check.py $pid --tier $tier > $out/check_$pid.txt 2>$out/check_$pid.err; echo "exit=$? (tier $tier, full check; native sweep flagged nothing the restricted runs could decide)" >> $out/check_$pid.txt)
-fi
-rif [ -n "$hits" ]; then
-  (cd $V && VERIF_ONLY="$hits" python3 check.py $pid --tier $tier > $out/check_$pid.txt 2>$out/check_$pid.err; echo "exit=$? (tier $tier, restricted to the harnesses the native sweep flagged: $hits)" >> $out/check_$pid.txt)
-  if ! grep -q "^VIOLATION" $out/check_$pid.txt && [ "$tier" = quick ]; then
-    # the flagged harnesses may belong to the thorough tier only (larger bounds, slow ones)
-    (cd $V && VERIF_ONLY="$hits" python3 check.py $pid --tier thorough > $out/check_${pid}_thorough.txt 2>$out/check_${pid}_thorough.err; echo "exit=$? (tier thorough, restricted to the harnesses the native sweep flagged: $hits)" >> $out/check_${pid}_thorough.txt)
-    if grep -q "^VIOLATION" $out/check_${pid}_thorough.txt; then cp $out/check_${pid}_thorough.txt $out/check_$pid.txt; fi
-  fi
-fi
-if [ -z "$hits" ] || { ! grep -q "^VIOLATION" $out/check_$pid.txt && grep -q "no obligation was generated" $out/check_$pid.txt; }; then
-  (cd $V && python3 check.py $pid --tier $tier > $out/check_$pid.txt 2>$out/check_$pid.err; echo "exit=$? (tier $tier, full check; native sweep flagged nothing the restricted runs could decide)" >> $out/check_$pid.txt)
-fi
-uif [ -n "$hits" ]; then
-  (cd $V && VERIF_ONLY="$hits" python3 check.py $pid --tier $tier > $out/check_$pid.txt 2>$out/check_$pid.err; echo "exit=$? (tier $tier, restricted to the harnesses the native sweep flagged: $hits)" >> $out/check_$pid.txt)
-  if ! grep -q "^VIOLATION" $out/check_$pid.txt && [ "$tier" = quick ]; then
-    # the flagged harnesses may belong to the thorough tier only (larger bounds, slow ones)
-    (cd $V && VERIF_ONLY="$hits" python3 check.py $pid --tier thorough > $out/check_${pid}_thorough.txt 2>$out/check_${pid}_thorough.err; echo "exit=$? (tier thorough, restricted to the harnesses the native sweep flagged: $hits)" >> $out/check_${pid}_thorough.txt)
-    if grep -q "^VIOLATION" $out/check_${pid}_thorough.txt; then cp $out/check_${pid}_thorough.txt $out/check_$pid.txt; fi
-  fi
-fi
-if [ -z "$hits" ] || { ! grep -q "^VIOLATION" $out/check_$pid.txt && grep -q "no obligation was generated" $out/check_$pid.txt; }; then
-  (cd $V && python3 check.py $pid --tier $tier > $out/check_$pid.txt 2>$out/check_$pid.err; echo "exit=$? (tier $tier, full check; native sweep flagged nothing the restricted runs could decide)" >> $out/check_$pid.txt)
-fi
-nif [ -n "$hits" ]; then
-  (cd $V && VERIF_ONLY="$hits" python3 check.py $pid --tier $tier > $out/check_$pid.txt 2>$out/check_$pid.err; echo "exit=$? (tier $tier, restricted to the harnesses the native sweep flagged: $hits)" >> $out/check_$pid.txt)
-  if ! grep -q "^VIOLATION" $out/check_$pid.txt && [ "$tier" = quick ]; then
-    # the flagged harnesses may belong to the thorough tier only (larger bounds, slow ones)
-    (cd $V && VERIF_ONLY="$hits" python3 check.py $pid --tier thorough > $out/check_${pid}_thorough.txt 2>$out/check_${pid}_thorough.err; echo "exit=$? (tier thorough, restricted to the harnesses the native sweep flagged: $hits)" >> $out/check_${pid}_thorough.txt)
-    if grep -q "^VIOLATION" $out/check_${pid}_thorough.txt; then cp $out/check_${pid}_thorough.txt $out/check_$pid.txt; fi
-  fi
-fi
-if [ -z "$hits" ] || { ! grep -q "^VIOLATION" $out/check_$pid.txt && grep -q "no obligation was generated" $out/check_$pid.txt; }; then
-  (cd $V && python3 check.py $pid --tier $tier > $out/check_$pid.txt 2>$out/check_$pid.err; echo "exit=$? (tier $tier, full check; native sweep flagged nothing the restricted runs could decide)" >> $out/check_$pid.txt)
-fi
-/if [ -n "$hits" ]; then
-  (cd $V && VERIF_ONLY="$hits" python3 check.py $pid --tier $tier > $out/check_$pid.txt 2>$out/check_$pid.err; echo "exit=$? (tier $tier, restricted to the harnesses the native sweep flagged: $hits)" >> $out/check_$pid.txt)
-  if ! grep -q "^VIOLATION" $out/check_$pid.txt && [ "$tier" = quick ]; then
-    # the flagged harnesses may belong to the thorough tier only (larger bounds, slow ones)
-    (cd $V && VERIF_ONLY="$hits" python3 check.py $pid --tier thorough > $out/check_${pid}_thorough.txt 2>$out/check_${pid}_thorough.err; echo "exit=$? (tier thorough, restricted to the harnesses the native sweep flagged: $hits)" >> $out/check_${pid}_thorough.txt)
-    if grep -q "^VIOLATION" $out/check_${pid}_thorough.txt; then cp $out/check_${pid}_thorough.txt $out/check_$pid.txt; fi
-  fi
-fi
-if [ -z "$hits" ] || { ! grep -q "^VIOLATION" $out/check_$pid.txt && grep -q "no obligation was generated" $out/check_$pid.txt; }; then
-  (cd $V && python3 check.py $pid --tier $tier > $out/check_$pid.txt 2>$out/check_$pid.err; echo "exit=$? (tier $tier, full check; native sweep flagged nothing the restricted runs could decide)" >> $out/check_$pid.txt)
-fi
-bif [ -n "$hits" ]; then
-  (cd $V && VERIF_ONLY="$hits" python3 check.py $pid --tier $tier > $out/check_$pid.txt 2>$out/check_$pid.err; echo "exit=$? (tier $tier, restricted to the harnesses the native sweep flagged: $hits)" >> $out/check_$pid.txt)
-  if ! grep -q "^VIOLATION" $out/check_$pid.txt && [ "$tier" = quick ]; then
-    # the flagged harnesses may belong to the thorough tier only (larger bounds, slow ones)
-    (cd $V && VERIF_ONLY="$hits" python3 check.py $pid --tier thorough > $out/check_${pid}_thorough.txt 2>$out/check_${pid}_thorough.err; echo "exit=$? (tier thorough, restricted to the harnesses the native sweep flagged: $hits)" >> $out/check_${pid}_thorough.txt)
-    if grep -q "^VIOLATION" $out/check_${pid}_thorough.txt; then cp $out/check_${pid}_thorough.txt $out/check_$pid.txt; fi
-  fi
-fi
-if [ -z "$hits" ] || { ! grep -q "^VIOLATION" $out/check_$pid.txt && grep -q "no obligation was generated" $out/check_$pid.txt; }; then
-  (cd $V && python3 check.py $pid --tier $tier > $out/check_$pid.txt 2>$out/check_$pid.err; echo "exit=$? (tier $tier, full check; native sweep flagged nothing the restricted runs could decide)" >> $out/check_$pid.txt)
-fi
-aif [ -n "$hits" ]; then
-  (cd $V && VERIF_ONLY="$hits" python3 check.py $pid --tier $tier > $out/check_$pid.txt 2>$out/check_$pid.err; echo "exit=$? (tier $tier, restricted to the harnesses the native sweep flagged: $hits)" >> $out/check_$pid.txt)
-  if ! grep -q "^VIOLATION" $out/check_$pid.txt && [ "$tier" = quick ]; then
-    # the flagged harnesses may belong to the thorough tier only (larger bounds, slow ones)
-    (cd $V && VERIF_ONLY="$hits" python3 check.py $pid --tier thorough > $out/check_${pid}_thorough.txt 2>$out/check_${pid}_thorough.err; echo "exit=$? (tier thorough, restricted to the harnesses the native sweep flagged: $hits)" >> $out/check_${pid}_thorough.txt)
-    if grep -q "^VIOLATION" $out/check_${pid}_thorough.txt; then cp $out/check_${pid}_thorough.txt $out/check_$pid.txt; fi
-  fi
-fi
-if [ -z "$hits" ] || { ! grep -q "^VIOLATION" $out/check_$pid.txt && grep -q "no obligation was generated" $out/check_$pid.txt; }; then
-  (cd $V && python3 check.py $pid --tier $tier > $out/check_$pid.txt 2>$out/check_$pid.err; echo "exit=$? (tier $tier, full check; native sweep flagged nothing the restricted runs could decide)" >> $out/check_$pid.txt)
-fi
-sif [ -n "$hits" ]; then
-  (cd $V && VERIF_ONLY="$hits" python3 check.py $pid --tier $tier > $out/check_$pid.txt 2>$out/check_$pid.err; echo "exit=$? (tier $tier, restricted to the harnesses the native sweep flagged: $hits)" >> $out/check_$pid.txt)
-  if ! grep -q "^VIOLATION" $out/check_$pid.txt && [ "$tier" = quick ]; then
-    # the flagged harnesses may belong to the thorough tier only (larger bounds, slow ones)
-    (cd $V && VERIF_ONLY="$hits" python3 check.py $pid --tier thorough > $out/check_${pid}_thorough.txt 2>$out/check_${pid}_thorough.err; echo "exit=$? (tier thorough, restricted to the harnesses the native sweep flagged: $hits)" >> $out/check_${pid}_thorough.txt)
-    if grep -q "^VIOLATION" $out/check_${pid}_thorough.txt; then cp $out/check_${pid}_thorough.txt $out/check_$pid.txt; fi
-  fi
-fi
-if [ -z "$hits" ] || { ! grep -q "^VIOLATION" $out/check_$pid.txt && grep -q "no obligation was generated" $out/check_$pid.txt; }; then
-  (cd $V && python3 check.py $pid --tier $tier > $out/check_$pid.txt 2>$out/check_$pid.err; echo "exit=$? (tier $tier, full check; native sweep flagged nothing the restricted runs could decide)" >> $out/check_$pid.txt)
-fi
-eif [ -n "$hits" ]; then
-  (cd $V && VERIF_ONLY="$hits" python3 check.py $pid --tier $tier > $out/check_$pid.txt 2>$out/check_$pid.err; echo "exit=$? (tier $tier, restricted to the harnesses the native sweep flagged: $hits)" >> $out/check_$pid.txt)
-  if ! grep -q "^VIOLATION" $out/check_$pid.txt && [ "$tier" = quick ]; then
-    # the flagged harnesses may belong to the thorough tier only (larger bounds, slow ones)
-    (cd $V && VERIF_ONLY="$hits" python3 check.py $pid --tier thorough > $out/check_${pid}_thorough.txt 2>$out/check_${pid}_thorough.err; echo "exit=$? (tier thorough, restricted to the harnesses the native sweep flagged: $hits)" >> $out/check_${pid}_thorough.txt)
-    if grep -q "^VIOLATION" $out/check_${pid}_thorough.txt; then cp $out/check_${pid}_thorough.txt $out/check_$pid.txt; fi
-  fi
-fi
-if [ -z "$hits" ] || { ! grep -q "^VIOLATION" $out/check_$pid.txt && grep -q "no obligation was generated" $out/check_$pid.txt; }; then
-  (cd $V && python3 check.py $pid --tier $tier > $out/check_$pid.txt 2>$out/check_$pid.err; echo "exit=$? (tier $tier, full check; native sweep flagged nothing the restricted runs could decide)" >> $out/check_$pid.txt)
-fi
-lif [ -n "$hits" ]; then
-  (cd $V && VERIF_ONLY="$hits" python3 check.py $pid --tier $tier > $out/check_$pid.txt 2>$out/check_$pid.err; echo "exit=$? (tier $tier, restricted to the harnesses the native sweep flagged: $hits)" >> $out/check_$pid.txt)
-  if ! grep -q "^VIOLATION" $out/check_$pid.txt && [ "$tier" = quick ]; then
-    # the flagged harnesses may belong to the thorough tier only (larger bounds, slow ones)
-    (cd $V && VERIF_ONLY="$hits" python3 check.py $pid --tier thorough > $out/check_${pid}_thorough.txt 2>$out/check_${pid}_thorough.err; echo "exit=$? (tier thorough, restricted to the harnesses the native sweep flagged: $hits)" >> $out/check_${pid}_thorough.txt)
-    if grep -q "^VIOLATION" $out/check_${pid}_thorough.txt; then cp $out/check_${pid}_thorough.txt $out/check_$pid.txt; fi
-  fi
-fi
-if [ -z "$hits" ] || { ! grep -q "^VIOLATION" $out/check_$pid.txt && grep -q "no obligation was generated" $out/check_$pid.txt; }; then
-  (cd $V && python3 check.py $pid --tier $tier > $out/check_$pid.txt 2>$out/check_$pid.err; echo "exit=$? (tier $tier, full check; native sweep flagged nothing the restricted runs could decide)" >> $out/check_$pid.txt)
-fi
-iif [ -n "$hits" ]; then
-  (cd $V && VERIF_ONLY="$hits" python3 check.py $pid --tier $tier > $out/check_$pid.txt 2>$out/check_$pid.err; echo "exit=$? (tier $tier, restricted to the harnesses the native sweep flagged: $hits)" >> $out/check_$pid.txt)
-  if ! grep -q "^VIOLATION" $out/check_$pid.txt && [ "$tier" = quick ]; then
-    # the flagged harnesses may belong to the thorough tier only (larger bounds, slow ones)
-    (cd $V && VERIF_ONLY="$hits" python3 check.py $pid --tier thorough > $out/check_${pid}_thorough.txt 2>$out/check_${pid}_thorough.err; echo "exit=$? (tier thorough, restricted to the harnesses the native sweep flagged: $hits)" >> $out/check_${pid}_thorough.txt)
-    if grep -q "^VIOLATION" $out/check_${pid}_thorough.txt; then cp $out/check_${pid}_thorough.txt $out/check_$pid.txt; fi
-  fi
-fi
-if [ -z "$hits" ] || { ! grep -q "^VIOLATION" $out/check_$pid.txt && grep -q "no obligation was generated" $out/check_$pid.txt; }; then
-  (cd $V && python3 check.py $pid --tier $tier > $out/check_$pid.txt 2>$out/check_$pid.err; echo "exit=$? (tier $tier, full check; native sweep flagged nothing the restricted runs could decide)" >> $out/check_$pid.txt)
-fi
-nif [ -n "$hits" ]; then
-  (cd $V && VERIF_ONLY="$hits" python3 check.py $pid --tier $tier > $out/check_$pid.txt 2>$out/check_$pid.err; echo "exit=$? (tier $tier, restricted to the harnesses the native sweep flagged: $hits)" >> $out/check_$pid.txt)
-  if ! grep -q "^VIOLATION" $out/check_$pid.txt && [ "$tier" = quick ]; then
-    # the flagged harnesses may belong to the thorough tier only (larger bounds, slow ones)
-    (cd $V && VERIF_ONLY="$hits" python3 check.py $pid --tier thorough > $out/check_${pid}_thorough.txt 2>$out/check_${pid}_thorough.err; echo "exit=$? (tier thorough, restricted to the harnesses the native sweep flagged: $hits)" >> $out/check_${pid}_thorough.txt)
-    if grep -q "^VIOLATION" $out/check_${pid}_thorough.txt; then cp $out/check_${pid}_thorough.txt $out/check_$pid.txt; fi
-  fi
-fi
-if [ -z "$hits" ] || { ! grep -q "^VIOLATION" $out/check_$pid.txt && grep -q "no obligation was generated" $out/check_$pid.txt; }; then
-  (cd $V && python3 check.py $pid --tier $tier > $out/check_$pid.txt 2>$out/check_$pid.err; echo "exit=$? (tier $tier, full check; native sweep flagged nothing the restricted runs could decide)" >> $out/check_$pid.txt)
-fi
-eif [ -n "$hits" ]; then
-  (cd $V && VERIF_ONLY="$hits" python3 check.py $pid --tier $tier > $out/check_$pid.txt 2>$out/check_$pid.err; echo "exit=$? (tier $tier, restricted to the harnesses the native sweep flagged: $hits)" >> $out/check_$pid.txt)
-  if ! grep -q "^VIOLATION" $out/check_$pid.txt && [ "$tier" = quick ]; then
-    # the flagged harnesses may belong to the thorough tier only (larger bounds, slow ones)
-    (cd $V && VERIF_ONLY="$hits" python3 check.py $pid --tier thorough > $out/check_${pid}_thorough.txt 2>$out/check_${pid}_thorough.err; echo "exit=$? (tier thorough, restricted to the harnesses the native sweep flagged: $hits)" >> $out/check_${pid}_thorough.txt)
-    if grep -q "^VIOLATION" $out/check_${pid}_thorough.txt; then cp $out/check_${pid}_thorough.txt $out/check_$pid.txt; fi
-  fi
-fi
-if [ -z "$hits" ] || { ! grep -q "^VIOLATION" $out/check_$pid.txt && grep -q "no obligation was generated" $out/check_$pid.txt; }; then
-  (cd $V && python3 check.py $pid --tier $tier > $out/check_$pid.txt 2>$out/check_$pid.err; echo "exit=$? (tier $tier, full check; native sweep flagged nothing the restricted runs could decide)" >> $out/check_$pid.txt)
-fi
-.if [ -n "$hits" ]; then
-  (cd $V && VERIF_ONLY="$hits" python3 check.py $pid --tier $tier > $out/check_$pid.txt 2>$out/check_$pid.err; echo "exit=$? (tier $tier, restricted to the harnesses the native sweep flagged: $hits)" >> $out/check_$pid.txt)
-  if ! grep -q "^VIOLATION" $out/check_$pid.txt && [ "$tier" = quick ]; then
-    # the flagged harnesses may belong to the thorough tier only (larger bounds, slow ones)
-    (cd $V && VERIF_ONLY="$hits" python3 check.py $pid --tier thorough > $out/check_${pid}_thorough.txt 2>$out/check_${pid}_thorough.err; echo "exit=$? (tier thorough, restricted to the harnesses the native sweep flagged: $hits)" >> $out/check_${pid}_thorough.txt)
-    if grep -q "^VIOLATION" $out/check_${pid}_thorough.txt; then cp $out/check_${pid}_thorough.txt $out/check_$pid.txt; fi
-  fi
-fi
-if [ -z "$hits" ] || { ! grep -q "^VIOLATION" $out/check_$pid.txt && grep -q "no obligation was generated" $out/check_$pid.txt; }; then
-  (cd $V && python3 check.py $pid --tier $tier > $out/check_$pid.txt 2>$out/check_$pid.err; echo "exit=$? (tier $tier, full check; native sweep flagged nothing the restricted runs could decide)" >> $out/check_$pid.txt)
-fi
-jif [ -n "$hits" ]; then
-  (cd $V && VERIF_ONLY="$hits" python3 check.py $pid --tier $tier > $out/check_$pid.txt 2>$out/check_$pid.err; echo "exit=$? (tier $tier, restricted to the harnesses the native sweep flagged: $hits)" >> $out/check_$pid.txt)
-  if ! grep -q "^VIOLATION" $out/check_$pid.txt && [ "$tier" = quick ]; then
-    # the flagged harnesses may belong to the thorough tier only (larger bounds, slow ones)
-    (cd $V && VERIF_ONLY="$hits" python3 check.py $pid --tier thorough > $out/check_${pid}_thorough.txt 2>$out/check_${pid}_thorough.err; echo "exit=$? (tier thorough, restricted to the harnesses the native sweep flagged: $hits)" >> $out/check_${pid}_thorough.txt)
-    if grep -q "^VIOLATION" $out/check_${pid}_thorough.txt; then cp $out/check_${pid}_thorough.txt $out/check_$pid.txt; fi
-  fi
-fi
-if [ -z "$hits" ] || { ! grep -q "^VIOLATION" $out/check_$pid.txt && grep -q "no obligation was generated" $out/check_$pid.txt; }; then
-  (cd $V && python3 check.py $pid --tier $tier > $out/check_$pid.txt 2>$out/check_$pid.err; echo "exit=$? (tier $tier, full check; native sweep flagged nothing the restricted runs could decide)" >> $out/check_$pid.txt)
-fi
-sif [ -n "$hits" ]; then
-  (cd $V && VERIF_ONLY="$hits" python3 check.py $pid --tier $tier > $out/check_$pid.txt 2>$out/check_$pid.err; echo "exit=$? (tier $tier, restricted to the harnesses the native sweep flagged: $hits)" >> $out/check_$pid.txt)
-  if ! grep -q "^VIOLATION" $out/check_$pid.txt && [ "$tier" = quick ]; then
-    # the flagged harnesses may belong to the thorough tier only (larger bounds, slow ones)
-    (cd $V && VERIF_ONLY="$hits" python3 check.py $pid --tier thorough > $out/check_${pid}_thorough.txt 2>$out/check_${pid}_thorough.err; echo "exit=$? (tier thorough, restricted to the harnesses the native sweep flagged: $hits)" >> $out/check_${pid}_thorough.txt)
-    if grep -q "^VIOLATION" $out/check_${pid}_thorough.txt; then cp $out/check_${pid}_thorough.txt $out/check_$pid.txt; fi
-  fi
-fi
-if [ -z "$hits" ] || { ! grep -q "^VIOLATION" $out/check_$pid.txt && grep -q "no obligation was generated" $out/check_$pid.txt; }; then
-  (cd $V && python3 check.py $pid --tier $tier > $out/check_$pid.txt 2>$out/check_$pid.err; echo "exit=$? (tier $tier, full check; native sweep flagged nothing the restricted runs could decide)" >> $out/check_$pid.txt)
-fi
-oif [ -n "$hits" ]; then
-  (cd $V && VERIF_ONLY="$hits" python3 check.py $pid --tier $tier > $out/check_$pid.txt 2>$out/check_$pid.err; echo "exit=$? (tier $tier, restricted to the harnesses the native sweep flagged: $hits)" >> $out/check_$pid.txt)
-  if ! grep -q "^VIOLATION" $out/check_$pid.txt && [ "$tier" = quick ]; then
-    # the flagged harnesses may belong to the thorough tier only (larger bounds, slow ones)
-    (cd $V && VERIF_ONLY="$hits" python3 check.py $pid --tier thorough > $out/check_${pid}_thorough.txt 2>$out/check_${pid}_thorough.err; echo "exit=$? (tier thorough, restricted to the harnesses the native sweep flagged: $hits)" >> $out/check_${pid}_thorough.txt)
-    if grep -q "^VIOLATION" $out/check_${pid}_thorough.txt; then cp $out/check_${pid}_thorough.txt $out/check_$pid.txt; fi
-  fi
-fi
-if [ -z "$hits" ] || { ! grep -q "^VIOLATION" $out/check_$pid.txt && grep -q "no obligation was generated" $out/check_$pid.txt; }; then
-  (cd $V && python3 check.py $pid --tier $tier > $out/check_$pid.txt 2>$out/check_$pid.err; echo "exit=$? (tier $tier, full check; native sweep flagged nothing the restricted runs could decide)" >> $out/check_$pid.txt)
-fi
-nif [ -n "$hits" ]; then
-  (cd $V && VERIF_ONLY="$hits" python3 check.py $pid --tier $tier > $out/check_$pid.txt 2>$out/check_$pid.err; echo "exit=$? (tier $tier, restricted to the harnesses the native sweep flagged: $hits)" >> $out/check_$pid.txt)
-  if ! grep -q "^VIOLATION" $out/check_$pid.txt && [ "$tier" = quick ]; then
-    # the flagged harnesses may belong to the thorough tier only (larger bounds, slow ones)
-    (cd $V && VERIF_ONLY="$hits" python3 check.py $pid --tier thorough > $out/check_${pid}_thorough.txt 2>$out/check_${pid}_thorough.err; echo "exit=$? (tier thorough, restricted to the harnesses the native sweep flagged: $hits)" >> $out/check_${pid}_thorough.txt)
-    if grep -q "^VIOLATION" $out/check_${pid}_thorough.txt; then cp $out/check_${pid}_thorough.txt $out/check_$pid.txt; fi
-  fi
-fi
-if [ -z "$hits" ] || { ! grep -q "^VIOLATION" $out/check_$pid.txt && grep -q "no obligation was generated" $out/check_$pid.txt; }; then
-  (cd $V && python3 check.py $pid --tier $tier > $out/check_$pid.txt 2>$out/check_$pid.err; echo "exit=$? (tier $tier, full check; native sweep flagged nothing the restricted runs could decide)" >> $out/check_$pid.txt)
-fi
-)if [ -n "$hits" ]; then
-  (cd $V && VERIF_ONLY="$hits" python3 check.py $pid --tier $tier > $out/check_$pid.txt 2>$out/check_$pid.err; echo "exit=$? (tier $tier, restricted to the harnesses the native sweep flagged: $hits)" >> $out/check_$pid.txt)
-  if ! grep -q "^VIOLATION" $out/check_$pid.txt && [ "$tier" = quick ]; then
-    # the flagged harnesses may belong to the thorough tier only (larger bounds, slow ones)
-    (cd $V && VERIF_ONLY="$hits" python3 check.py $pid --tier thorough > $out/check_${pid}_thorough.txt 2>$out/check_${pid}_thorough.err; echo "exit=$? (tier thorough, restricted to the harnesses the native sweep flagged: $hits)" >> $out/check_${pid}_thorough.txt)
-    if grep -q "^VIOLATION" $out/check_${pid}_thorough.txt; then cp $out/check_${pid}_thorough.txt $out/check_$pid.txt; fi
-  fi
-fi
-if [ -z "$hits" ] || { ! grep -q "^VIOLATION" $out/check_$pid.txt && grep -q "no obligation was generated" $out/check_$pid.txt; }; then
-  (cd $V && python3 check.py $pid --tier $tier > $out/check_$pid.txt 2>$out/check_$pid.err; echo "exit=$? (tier $tier, full check; native sweep flagged nothing the restricted runs could decide)" >> $out/check_$pid.txt)
-fi
-
-if [ -n "$hits" ]; then
-  (cd $V && VERIF_ONLY="$hits" python3 check.py $pid --tier $tier > $out/check_$pid.txt 2>$out/check_$pid.err; echo "exit=$? (tier $tier, restricted to the harnesses the native sweep flagged: $hits)" >> $out/check_$pid.txt)
-  if ! grep -q "^VIOLATION" $out/check_$pid.txt && [ "$tier" = quick ]; then
-    # the flagged harnesses may belong to the thorough tier only (larger bounds, slow ones)
-    (cd $V && VERIF_ONLY="$hits" python3 check.py $pid --tier thorough > $out/check_${pid}_thorough.txt 2>$out/check_${pid}_thorough.err; echo "exit=$? (tier thorough, restricted to the harnesses the native sweep flagged: $hits)" >> $out/check_${pid}_thorough.txt)
-    if grep -q "^VIOLATION" $out/check_${pid}_thorough.txt; then cp $out/check_${pid}_thorough.txt $out/check_$pid.txt; fi
-  fi
-fi
-if [ -z "$hits" ] || { ! grep -q "^VIOLATION" $out/check_$pid.txt && grep -q "no obligation was generated" $out/check_$pid.txt; }; then
-  (cd $V && python3 check.py $pid --tier $tier > $out/check_$pid.txt 2>$out/check_$pid.err; echo "exit=$? (tier $tier, full check; native sweep flagged nothing the restricted runs could decide)" >> $out/check_$pid.txt)
-fi
-fif [ -n "$hits" ]; then
-  (cd $V && VERIF_ONLY="$hits" python3 check.py $pid --tier $tier > $out/check_$pid.txt 2>$out/check_$pid.err; echo "exit=$? (tier $tier, restricted to the harnesses the native sweep flagged: $hits)" >> $out/check_$pid.txt)
-  if ! grep -q "^VIOLATION" $out/check_$pid.txt && [ "$tier" = quick ]; then
-    # the flagged harnesses may belong to the thorough tier only (larger bounds, slow ones)
-    (cd $V && VERIF_ONLY="$hits" python3 check.py $pid --tier thorough > $out/check_${pid}_thorough.txt 2>$out/check_${pid}_thorough.err; echo "exit=$? (tier thorough, restricted to the harnesses the native sweep flagged: $hits)" >> $out/check_${pid}_thorough.txt)
-    if grep -q "^VIOLATION" $out/check_${pid}_thorough.txt; then cp $out/check_${pid}_thorough.txt $out/check_$pid.txt; fi
-  fi
-fi
-if [ -z "$hits" ] || { ! grep -q "^VIOLATION" $out/check_$pid.txt && grep -q "no obligation was generated" $out/check_$pid.txt; }; then
-  (cd $V && python3 check.py $pid --tier $tier > $out/check_$pid.txt 2>$out/check_$pid.err; echo "exit=$? (tier $tier, full check; native sweep flagged nothing the restricted runs could decide)" >> $out/check_$pid.txt)
-fi
-iif [ -n "$hits" ]; then
-  (cd $V && VERIF_ONLY="$hits" python3 check.py $pid --tier $tier > $out/check_$pid.txt 2>$out/check_$pid.err; echo "exit=$? (tier $tier, restricted to the harnesses the native sweep flagged: $hits)" >> $out/check_$pid.txt)
-  if ! grep -q "^VIOLATION" $out/check_$pid.txt && [ "$tier" = quick ]; then
-    # the flagged harnesses may belong to the thorough tier only (larger bounds, slow ones)
-    (cd $V && VERIF_ONLY="$hits" python3 check.py $pid --tier thorough > $out/check_${pid}_thorough.txt 2>$out/check_${pid}_thorough.err; echo "exit=$? (tier thorough, restricted to the harnesses the native sweep flagged: $hits)" >> $out/check_${pid}_thorough.txt)
-    if grep -q "^VIOLATION" $out/check_${pid}_thorough.txt; then cp $out/check_${pid}_thorough.txt $out/check_$pid.txt; fi
-  fi
-fi
-if [ -z "$hits" ] || { ! grep -q "^VIOLATION" $out/check_$pid.txt && grep -q "no obligation was generated" $out/check_$pid.txt; }; then
-  (cd $V && python3 check.py $pid --tier $tier > $out/check_$pid.txt 2>$out/check_$pid.err; echo "exit=$? (tier $tier, full check; native sweep flagged nothing the restricted runs could decide)" >> $out/check_$pid.txt)
-fi
-
-if [ -n "$hits" ]; then
-  (cd $V && VERIF_ONLY="$hits" python3 check.py $pid --tier $tier > $out/check_$pid.txt 2>$out/check_$pid.err; echo "exit=$? (tier $tier, restricted to the harnesses the native sweep flagged: $hits)" >> $out/check_$pid.txt)
-  if ! grep -q "^VIOLATION" $out/check_$pid.txt && [ "$tier" = quick ]; then
-    # the flagged harnesses may belong to the thorough tier only (larger bounds, slow ones)
-    (cd $V && VERIF_ONLY="$hits" python3 check.py $pid --tier thorough > $out/check_${pid}_thorough.txt 2>$out/check_${pid}_thorough.err; echo "exit=$? (tier thorough, restricted to the harnesses the native sweep flagged: $hits)" >> $out/check_${pid}_thorough.txt)
-    if grep -q "^VIOLATION" $out/check_${pid}_thorough.txt; then cp $out/check_${pid}_thorough.txt $out/check_$pid.txt; fi
-  fi
-fi
-if [ -z "$hits" ] || { ! grep -q "^VIOLATION" $out/check_$pid.txt && grep -q "no obligation was generated" $out/check_$pid.txt; }; then
-  (cd $V && python3 check.py $pid --tier $tier > $out/check_$pid.txt 2>$out/check_$pid.err; echo "exit=$? (tier $tier, full check; native sweep flagged nothing the restricted runs could decide)" >> $out/check_$pid.txt)
-fi
-eif [ -n "$hits" ]; then
-  (cd $V && VERIF_ONLY="$hits" python3 check.py $pid --tier $tier > $out/check_$pid.txt 2>$out/check_$pid.err; echo "exit=$? (tier $tier, restricted to the harnesses the native sweep flagged: $hits)" >> $out/check_$pid.txt)
-  if ! grep -q "^VIOLATION" $out/check_$pid.txt && [ "$tier" = quick ]; then
-    # the flagged harnesses may belong to the thorough tier only (larger bounds, slow ones)
-    (cd $V && VERIF_ONLY="$hits" python3 check.py $pid --tier thorough > $out/check_${pid}_thorough.txt 2>$out/check_${pid}_thorough.err; echo "exit=$? (tier thorough, restricted to the harnesses the native sweep flagged: $hits)" >> $out/check_${pid}_thorough.txt)
-    if grep -q "^VIOLATION" $out/check_${pid}_thorough.txt; then cp $out/check_${pid}_thorough.txt $out/check_$pid.txt; fi
-  fi
-fi
-if [ -z "$hits" ] || { ! grep -q "^VIOLATION" $out/check_$pid.txt && grep -q "no obligation was generated" $out/check_$pid.txt; }; then
-  (cd $V && python3 check.py $pid --tier $tier > $out/check_$pid.txt 2>$out/check_$pid.err; echo "exit=$? (tier $tier, full check; native sweep flagged nothing the restricted runs could decide)" >> $out/check_$pid.txt)
-fi
-xif [ -n "$hits" ]; then
-  (cd $V && VERIF_ONLY="$hits" python3 check.py $pid --tier $tier > $out/check_$pid.txt 2>$out/check_$pid.err; echo "exit=$? (tier $tier, restricted to the harnesses the native sweep flagged: $hits)" >> $out/check_$pid.txt)
-  if ! grep -q "^VIOLATION" $out/check_$pid.txt && [ "$tier" = quick ]; then
-    # the flagged harnesses may belong to the thorough tier only (larger bounds, slow ones)
-    (cd $V && VERIF_ONLY="$hits" python3 check.py $pid --tier thorough > $out/check_${pid}_thorough.txt 2>$out/check_${pid}_thorough.err; echo "exit=$? (tier thorough, restricted to the harnesses the native sweep flagged: $hits)" >> $out/check_${pid}_thorough.txt)
-    if grep -q "^VIOLATION" $out/check_${pid}_thorough.txt; then cp $out/check_${pid}_thorough.txt $out/check_$pid.txt; fi
-  fi
-fi
-if [ -z "$hits" ] || { ! grep -q "^VIOLATION" $out/check_$pid.txt && grep -q "no obligation was generated" $out/check_$pid.txt; }; then
-  (cd $V && python3 check.py $pid --tier $tier > $out/check_$pid.txt 2>$out/check_$pid.err; echo "exit=$? (tier $tier, full check; native sweep flagged nothing the restricted runs could decide)" >> $out/check_$pid.txt)
-fi
-pif [ -n "$hits" ]; then
-  (cd $V && VERIF_ONLY="$hits" python3 check.py $pid --tier $tier > $out/check_$pid.txt 2>$out/check_$pid.err; echo "exit=$? (tier $tier, restricted to the harnesses the native sweep flagged: $hits)" >> $out/check_$pid.txt)
-  if ! grep -q "^VIOLATION" $out/check_$pid.txt && [ "$tier" = quick ]; then
-    # the flagged harnesses may belong to the thorough tier only (larger bounds, slow ones)
-    (cd $V && VERIF_ONLY="$hits" python3 check.py $pid --tier thorough > $out/check_${pid}_thorough.txt 2>$out/check_${pid}_thorough.err; echo "exit=$? (tier thorough, restricted to the harnesses the native sweep flagged: $hits)" >> $out/check_${pid}_thorough.txt)
-    if grep -q "^VIOLATION" $out/check_${pid}_thorough.txt; then cp $out/check_${pid}_thorough.txt $out/check_$pid.txt; fi
-  fi
-fi
-if [ -z "$hits" ] || { ! grep -q "^VIOLATION" $out/check_$pid.txt && grep -q "no obligation was generated" $out/check_$pid.txt; }; then
-  (cd $V && python3 check.py $pid --tier $tier > $out/check_$pid.txt 2>$out/check_$pid.err; echo "exit=$? (tier $tier, full check; native sweep flagged nothing the restricted runs could decide)" >> $out/check_$pid.txt)
-fi
-oif [ -n "$hits" ]; then
-  (cd $V && VERIF_ONLY="$hits" python3 check.py $pid --tier $tier > $out/check_$pid.txt 2>$out/check_$pid.err; echo "exit=$? (tier $tier, restricted to the harnesses the native sweep flagged: $hits)" >> $out/check_$pid.txt)
-  if ! grep -q "^VIOLATION" $out/check_$pid.txt && [ "$tier" = quick ]; then
-    # the flagged harnesses may belong to the thorough tier only (larger bounds, slow ones)
-    (cd $V && VERIF_ONLY="$hits" python3 check.py $pid --tier thorough > $out/check_${pid}_thorough.txt 2>$out/check_${pid}_thorough.err; echo "exit=$? (tier thorough, restricted to the harnesses the native sweep flagged: $hits)" >> $out/check_${pid}_thorough.txt)
-    if grep -q "^VIOLATION" $out/check_${pid}_thorough.txt; then cp $out/check_${pid}_thorough.txt $out/check_$pid.txt; fi
-  fi
-fi
-if [ -z "$hits" ] || { ! grep -q "^VIOLATION" $out/check_$pid.txt && grep -q "no obligation was generated" $out/check_$pid.txt; }; then
-  (cd $V && python3 check.py $pid --tier $tier > $out/check_$pid.txt 2>$out/check_$pid.err; echo "exit=$? (tier $tier, full check; native sweep flagged nothing the restricted runs could decide)" >> $out/check_$pid.txt)
-fi
-rif [ -n "$hits" ]; then
-  (cd $V && VERIF_ONLY="$hits" python3 check.py $pid --tier $tier > $out/check_$pid.txt 2>$out/check_$pid.err; echo "exit=$? (tier $tier, restricted to the harnesses the native sweep flagged: $hits)" >> $out/check_$pid.txt)
-  if ! grep -q "^VIOLATION" $out/check_$pid.txt && [ "$tier" = quick ]; then
-    # the flagged harnesses may belong to the thorough tier only (larger bounds, slow ones)
-    (cd $V && VERIF_ONLY="$hits" python3 check.py $pid --tier thorough > $out/check_${pid}_thorough.txt 2>$out/check_${pid}_thorough.err; echo "exit=$? (tier thorough, restricted to the harnesses the native sweep flagged: $hits)" >> $out/check_${pid}_thorough.txt)
-    if grep -q "^VIOLATION" $out/check_${pid}_thorough.txt; then cp $out/check_${pid}_thorough.txt $out/check_$pid.txt; fi
-  fi
-fi
-if [ -z "$hits" ] || { ! grep -q "^VIOLATION" $out/check_$pid.txt && grep -q "no obligation was generated" $out/check_$pid.txt; }; then
-  (cd $V && python3 check.py $pid --tier $tier > $out/check_$pid.txt 2>$out/check_$pid.err; echo "exit=$? (tier $tier, full check; native sweep flagged nothing the restricted runs could decide)" >> $out/check_$pid.txt)
-fi
-tif [ -n "$hits" ]; then
-  (cd $V && VERIF_ONLY="$hits" python3 check.py $pid --tier $tier > $out/check_$pid.txt 2>$out/check_$pid.err; echo "exit=$? (tier $tier, restricted to the harnesses the native sweep flagged: $hits)" >> $out/check_$pid.txt)
-  if ! grep -q "^VIOLATION" $out/check_$pid.txt && [ "$tier" = quick ]; then
-    # the flagged harnesses may belong to the thorough tier only (larger bounds, slow ones)
-    (cd $V && VERIF_ONLY="$hits" python3 check.py $pid --tier thorough > $out/check_${pid}_thorough.txt 2>$out/check_${pid}_thorough.err; echo "exit=$? (tier thorough, restricted to the harnesses the native sweep flagged: $hits)" >> $out/check_${pid}_thorough.txt)
-    if grep -q "^VIOLATION" $out/check_${pid}_thorough.txt; then cp $out/check_${pid}_thorough.txt $out/check_$pid.txt; fi
-  fi
-fi
-if [ -z "$hits" ] || { ! grep -q "^VIOLATION" $out/check_$pid.txt && grep -q "no obligation was generated" $out/check_$pid.txt; }; then
-  (cd $V && python3 check.py $pid --tier $tier > $out/check_$pid.txt 2>$out/check_$pid.err; echo "exit=$? (tier $tier, full check; native sweep flagged nothing the restricted runs could decide)" >> $out/check_$pid.txt)
-fi
- if [ -n "$hits" ]; then
-  (cd $V && VERIF_ONLY="$hits" python3 check.py $pid --tier $tier > $out/check_$pid.txt 2>$out/check_$pid.err; echo "exit=$? (tier $tier, restricted to the harnesses the native sweep flagged: $hits)" >> $out/check_$pid.txt)
-  if ! grep -q "^VIOLATION" $out/check_$pid.txt && [ "$tier" = quick ]; then
-    # the flagged harnesses may belong to the thorough tier only (larger bounds, slow ones)
-    (cd $V && VERIF_ONLY="$hits" python3 check.py $pid --tier thorough > $out/check_${pid}_thorough.txt 2>$out/check_${pid}_thorough.err; echo "exit=$? (tier thorough, restricted to the harnesses the native sweep flagged: $hits)" >> $out/check_${pid}_thorough.txt)
-    if grep -q "^VIOLATION" $out/check_${pid}_thorough.txt; then cp $out/check_${pid}_thorough.txt $out/check_$pid.txt; fi
-  fi
-fi
-if [ -z "$hits" ] || { ! grep -q "^VIOLATION" $out/check_$pid.txt && grep -q "no obligation was generated" $out/check_$pid.txt; }; then
-  (cd $V && python3 check.py $pid --tier $tier > $out/check_$pid.txt 2>$out/check_$pid.err; echo "exit=$? (tier $tier, full check; native sweep flagged nothing the restricted runs could decide)" >> $out/check_$pid.txt)
-fi
-Vif [ -n "$hits" ]; then
-  (cd $V && VERIF_ONLY="$hits" python3 check.py $pid --tier $tier > $out/check_$pid.txt 2>$out/check_$pid.err; echo "exit=$? (tier $tier, restricted to the harnesses the native sweep flagged: $hits)" >> $out/check_$pid.txt)
-  if ! grep -q "^VIOLATION" $out/check_$pid.txt && [ "$tier" = quick ]; then
-    # the flagged harnesses may belong to the thorough tier only (larger bounds, slow ones)
-    (cd $V && VERIF_ONLY="$hits" python3 check.py $pid --tier thorough > $out/check_${pid}_thorough.txt 2>$out/check_${pid}_thorough.err; echo "exit=$? (tier thorough, restricted to the harnesses the native sweep flagged: $hits)" >> $out/check_${pid}_thorough.txt)
-    if grep -q "^VIOLATION" $out/check_${pid}_thorough.txt; then cp $out/check_${pid}_thorough.txt $out/check_$pid.txt; fi
-  fi
-fi
-if [ -z "$hits" ] || { ! grep -q "^VIOLATION" $out/check_$pid.txt && grep -q "no obligation was generated" $out/check_$pid.txt; }; then
-  (cd $V && python3 check.py $pid --tier $tier > $out/check_$pid.txt 2>$out/check_$pid.err; echo "exit=$? (tier $tier, full check; native sweep flagged nothing the restricted runs could decide)" >> $out/check_$pid.txt)
-fi
-Eif [ -n "$hits" ]; then
-  (cd $V && VERIF_ONLY="$hits" python3 check.py $pid --tier $tier > $out/check_$pid.txt 2>$out/check_$pid.err; echo "exit=$? (tier $tier, restricted to the harnesses the native sweep flagged: $hits)" >> $out/check_$pid.txt)
-  if ! grep -q "^VIOLATION" $out/check_$pid.txt && [ "$tier" = quick ]; then
-    # the flagged harnesses may belong to the thorough tier only (larger bounds, slow ones)
-    (cd $V && VERIF_ONLY="$hits" python3 check.py $pid --tier thorough > $out/check_${pid}_thorough.txt 2>$out/check_${pid}_thorough.err; echo "exit=$? (tier thorough, restricted to the harnesses the native sweep flagged: $hits)" >> $out/check_${pid}_thorough.txt)
-    if grep -q "^VIOLATION" $out/check_${pid}_thorough.txt; then cp $out/check_${pid}_thorough.txt $out/check_$pid.txt; fi
-  fi
-fi
-if [ -z "$hits" ] || { ! grep -q "^VIOLATION" $out/check_$pid.txt && grep -q "no obligation was generated" $out/check_$pid.txt; }; then
-  (cd $V && python3 check.py $pid --tier $tier > $out/check_$pid.txt 2>$out/check_$pid.err; echo "exit=$? (tier $tier, full check; native sweep flagged nothing the restricted runs could decide)" >> $out/check_$pid.txt)
-fi
-Rif [ -n "$hits" ]; then
-  (cd $V && VERIF_ONLY="$hits" python3 check.py $pid --tier $tier > $out/check_$pid.txt 2>$out/check_$pid.err; echo "exit=$? (tier $tier, restricted to the harnesses the native sweep flagged: $hits)" >> $out/check_$pid.txt)
-  if ! grep -q "^VIOLATION" $out/check_$pid.txt && [ "$tier" = quick ]; then
-    # the flagged harnesses may belong to the thorough tier only (larger bounds, slow ones)
-    (cd $V && VERIF_ONLY="$hits" python3 check.py $pid --tier thorough > $out/check_${pid}_thorough.txt 2>$out/check_${pid}_thorough.err; echo "exit=$? (tier thorough, restricted to the harnesses the native sweep flagged: $hits)" >> $out/check_${pid}_thorough.txt)
-    if grep -q "^VIOLATION" $out/check_${pid}_thorough.txt; then cp $out/check_${pid}_thorough.txt $out/check_$pid.txt; fi
-  fi
-fi
-if [ -z "$hits" ] || { ! grep -q "^VIOLATION" $out/check_$pid.txt && grep -q "no obligation was generated" $out/check_$pid.txt; }; then
-  (cd $V && python3 check.py $pid --tier $tier > $out/check_$pid.txt 2>$out/check_$pid.err; echo "exit=$? (tier $tier, full check; native sweep flagged nothing the restricted runs could decide)" >> $out/check_$pid.txt)
-fi
-Iif [ -n "$hits" ]; then
-  (cd $V && VERIF_ONLY="$hits" python3 check.py $pid --tier $tier > $out/check_$pid.txt 2>$out/check_$pid.err; echo "exit=$? (tier $tier, restricted to the harnesses the native sweep flagged: $hits)" >> $out/check_$pid.txt)
-  if ! grep -q "^VIOLATION" $out/check_$pid.txt && [ "$tier" = quick ]; then
-    # the flagged harnesses may belong to the thorough tier only (larger bounds, slow ones)
-    (cd $V && VERIF_ONLY="$hits" python3 check.py $pid --tier thorough > $out/check_${pid}_thorough.txt 2>$out/check_${pid}_thorough.err; echo "exit=$? (tier thorough, restricted to the harnesses the native sweep flagged: $hits)" >> $out/check_${pid}_thorough.txt)
-    if grep -q "^VIOLATION" $out/check_${pid}_thorough.txt; then cp $out/check_${pid}_thorough.txt $out/check_$pid.txt; fi
-  fi
-fi
-if [ -z "$hits" ] || { ! grep -q "^VIOLATION" $out/check_$pid.txt && grep -q "no obligation was generated" $out/check_$pid.txt; }; then
-  (cd $V && python3 check.py $pid --tier $tier > $out/check_$pid.txt 2>$out/check_$pid.err; echo "exit=$? (tier $tier, full check; native sweep flagged nothing the restricted runs could decide)" >> $out/check_$pid.txt)
-fi
-Fif [ -n "$hits" ]; then
-  (cd $V && VERIF_ONLY="$hits" python3 check.py $pid --tier $tier > $out/check_$pid.txt 2>$out/check_$pid.err; echo "exit=$? (tier $tier, restricted to the harnesses the native sweep flagged: $hits)" >> $out/check_$pid.txt)
-  if ! grep -q "^VIOLATION" $out/check_$pid.txt && [ "$tier" = quick ]; then
-    # the flagged harnesses may belong to the thorough tier only (larger bounds, slow ones)
-    (cd $V && VERIF_ONLY="$hits" python3 check.py $pid --tier thorough > $out/check_${pid}_thorough.txt 2>$out/check_${pid}_thorough.err; echo "exit=$? (tier thorough, restricted to the harnesses the native sweep flagged: $hits)" >> $out/check_${pid}_thorough.txt)
-    if grep -q "^VIOLATION" $out/check_${pid}_thorough.txt; then cp $out/check_${pid}_thorough.txt $out/check_$pid.txt; fi
-  fi
-fi
-if [ -z "$hits" ] || { ! grep -q "^VIOLATION" $out/check_$pid.txt && grep -q "no obligation was generated" $out/check_$pid.txt; }; then
-  (cd $V && python3 check.py $pid --tier $tier > $out/check_$pid.txt 2>$out/check_$pid.err; echo "exit=$? (tier $tier, full check; native sweep flagged nothing the restricted runs could decide)" >> $out/check_$pid.txt)
-fi
-_if [ -n "$hits" ]; then
-  (cd $V && VERIF_ONLY="$hits" python3 check.py $pid --tier $tier > $out/check_$pid.txt 2>$out/check_$pid.err; echo "exit=$? (tier $tier, restricted to the harnesses the native sweep flagged: $hits)" >> $out/check_$pid.txt)
-  if ! grep -q "^VIOLATION" $out/check_$pid.txt && [ "$tier" = quick ]; then
-    # the flagged harnesses may belong to the thorough tier only (larger bounds, slow ones)
-    (cd $V && VERIF_ONLY="$hits" python3 check.py $pid --tier thorough > $out/check_${pid}_thorough.txt 2>$out/check_${pid}_thorough.err; echo "exit=$? (tier thorough, restricted to the harnesses the native sweep flagged: $hits)" >> $out/check_${pid}_thorough.txt)
-    if grep -q "^VIOLATION" $out/check_${pid}_thorough.txt; then cp $out/check_${pid}_thorough.txt $out/check_$pid.txt; fi
-  fi
-fi
-if [ -z "$hits" ] || { ! grep -q "^VIOLATION" $out/check_$pid.txt && grep -q "no obligation was generated" $out/check_$pid.txt; }; then
-  (cd $V && python3 check.py $pid --tier $tier > $out/check_$pid.txt 2>$out/check_$pid.err; echo "exit=$? (tier $tier, full check; native sweep flagged nothing the restricted runs could decide)" >> $out/check_$pid.txt)
-fi
-Sif [ -n "$hits" ]; then
-  (cd $V && VERIF_ONLY="$hits" python3 check.py $pid --tier $tier > $out/check_$pid.txt 2>$out/check_$pid.err; echo "exit=$? (tier $tier, restricted to the harnesses the native sweep flagged: $hits)" >> $out/check_$pid.txt)
-  if ! grep -q "^VIOLATION" $out/check_$pid.txt && [ "$tier" = quick ]; then
-    # the flagged harnesses may belong to the thorough tier only (larger bounds, slow ones)
-    (cd $V && VERIF_ONLY="$hits" python3 check.py $pid --tier thorough > $out/check_${pid}_thorough.txt 2>$out/check_${pid}_thorough.err; echo "exit=$? (tier thorough, restricted to the harnesses the native sweep flagged: $hits)" >> $out/check_${pid}_thorough.txt)
-    if grep -q "^VIOLATION" $out/check_${pid}_thorough.txt; then cp $out/check_${pid}_thorough.txt $out/check_$pid.txt; fi
-  fi
-fi
-if [ -z "$hits" ] || { ! grep -q "^VIOLATION" $out/check_$pid.txt && grep -q "no obligation was generated" $out/check_$pid.txt; }; then
-  (cd $V && python3 check.py $pid --tier $tier > $out/check_$pid.txt 2>$out/check_$pid.err; echo "exit=$? (tier $tier, full check; native sweep flagged nothing the restricted runs could decide)" >> $out/check_$pid.txt)
-fi
-Wif [ -n "$hits" ]; then
-  (cd $V && VERIF_ONLY="$hits" python3 check.py $pid --tier $tier > $out/check_$pid.txt 2>$out/check_$pid.err; echo "exit=$? (tier $tier, restricted to the harnesses the native sweep flagged: $hits)" >> $out/check_$pid.txt)
-  if ! grep -q "^VIOLATION" $out/check_$pid.txt && [ "$tier" = quick ]; then
-    # the flagged harnesses may belong to the thorough tier only (larger bounds, slow ones)
-    (cd $V && VERIF_ONLY="$hits" python3 check.py $pid --tier thorough > $out/check_${pid}_thorough.txt 2>$out/check_${pid}_thorough.err; echo "exit=$? (tier thorough, restricted to the harnesses the native sweep flagged: $hits)" >> $out/check_${pid}_thorough.txt)
-    if grep -q "^VIOLATION" $out/check_${pid}_thorough.txt; then cp $out/check_${pid}_thorough.txt $out/check_$pid.txt; fi
-  fi
-fi
-if [ -z "$hits" ] || { ! grep -q "^VIOLATION" $out/check_$pid.txt && grep -q "no obligation was generated" $out/check_$pid.txt; }; then
-  (cd $V && python3 check.py $pid --tier $tier > $out/check_$pid.txt 2>$out/check_$pid.err; echo "exit=$? (tier $tier, full check; native sweep flagged nothing the restricted runs could decide)" >> $out/check_$pid.txt)
-fi
-Eif [ -n "$hits" ]; then
-  (cd $V && VERIF_ONLY="$hits" python3 check.py $pid --tier $tier > $out/check_$pid.txt 2>$out/check_$pid.err; echo "exit=$? (tier $tier, restricted to the harnesses the native sweep flagged: $hits)" >> $out/check_$pid.txt)
-  if ! grep -q "^VIOLATION" $out/check_$pid.txt && [ "$tier" = quick ]; then
-    # the flagged harnesses may belong to the thorough tier only (larger bounds, slow ones)
-    (cd $V && VERIF_ONLY="$hits" python3 check.py $pid --tier thorough > $out/check_${pid}_thorough.txt 2>$out/check_${pid}_thorough.err; echo "exit=$? (tier thorough, restricted to the harnesses the native sweep flagged: $hits)" >> $out/check_${pid}_thorough.txt)
-    if grep -q "^VIOLATION" $out/check_${pid}_thorough.txt; then cp $out/check_${pid}_thorough.txt $out/check_$pid.txt; fi
-  fi
-fi
-if [ -z "$hits" ] || { ! grep -q "^VIOLATION" $out/check_$pid.txt && grep -q "no obligation was generated" $out/check_$pid.txt; }; then
-  (cd $V && python3 check.py $pid --tier $tier > $out/check_$pid.txt 2>$out/check_$pid.err; echo "exit=$? (tier $tier, full check; native sweep flagged nothing the restricted runs could decide)" >> $out/check_$pid.txt)
-fi
-Eif [ -n "$hits" ]; then
-  (cd $V && VERIF_ONLY="$hits" python3 check.py $pid --tier $tier > $out/check_$pid.txt 2>$out/check_$pid.err; echo "exit=$? (tier $tier, restricted to the harnesses the native sweep flagged: $hits)" >> $out/check_$pid.txt)
-  if ! grep -q "^VIOLATION" $out/check_$pid.txt && [ "$tier" = quick ]; then
-    # the flagged harnesses may belong to the thorough tier only (larger bounds, slow ones)
-    (cd $V && VERIF_ONLY="$hits" python3 check.py $pid --tier thorough > $out/check_${pid}_thorough.txt 2>$out/check_${pid}_thorough.err; echo "exit=$? (tier thorough, restricted to the harnesses the native sweep flagged: $hits)" >> $out/check_${pid}_thorough.txt)
-    if grep -q "^VIOLATION" $out/check_${pid}_thorough.txt; then cp $out/check_${pid}_thorough.txt $out/check_$pid.txt; fi
-  fi
-fi
-if [ -z "$hits" ] || { ! grep -q "^VIOLATION" $out/check_$pid.txt && grep -q "no obligation was generated" $out/check_$pid.txt; }; then
-  (cd $V && python3 check.py $pid --tier $tier > $out/check_$pid.txt 2>$out/check_$pid.err; echo "exit=$? (tier $tier, full check; native sweep flagged nothing the restricted runs could decide)" >> $out/check_$pid.txt)
-fi
-Pif [ -n "$hits" ]; then
-  (cd $V && VERIF_ONLY="$hits" python3 check.py $pid --tier $tier > $out/check_$pid.txt 2>$out/check_$pid.err; echo "exit=$? (tier $tier, restricted to the harnesses the native sweep flagged: $hits)" >> $out/check_$pid.txt)
-  if ! grep -q "^VIOLATION" $out/check_$pid.txt && [ "$tier" = quick ]; then
-    # the flagged harnesses may belong to the thorough tier only (larger bounds, slow ones)
-    (cd $V && VERIF_ONLY="$hits" python3 check.py $pid --tier thorough > $out/check_${pid}_thorough.txt 2>$out/check_${pid}_thorough.err; echo "exit=$? (tier thorough, restricted to the harnesses the native sweep flagged: $hits)" >> $out/check_${pid}_thorough.txt)
-    if grep -q "^VIOLATION" $out/check_${pid}_thorough.txt; then cp $out/check_${pid}_thorough.txt $out/check_$pid.txt; fi
-  fi
-fi
-if [ -z "$hits" ] || { ! grep -q "^VIOLATION" $out/check_$pid.txt && grep -q "no obligation was generated" $out/check_$pid.txt; }; then
-  (cd $V && python3 check.py $pid --tier $tier > $out/check_$pid.txt 2>$out/check_$pid.err; echo "exit=$? (tier $tier, full check; native sweep flagged nothing the restricted runs could decide)" >> $out/check_$pid.txt)
-fi
-_if [ -n "$hits" ]; then
-  (cd $V && VERIF_ONLY="$hits" python3 check.py $pid --tier $tier > $out/check_$pid.txt 2>$out/check_$pid.err; echo "exit=$? (tier $tier, restricted to the harnesses the native sweep flagged: $hits)" >> $out/check_$pid.txt)
-  if ! grep -q "^VIOLATION" $out/check_$pid.txt && [ "$tier" = quick ]; then
-    # the flagged harnesses may belong to the thorough tier only (larger bounds, slow ones)
-    (cd $V && VERIF_ONLY="$hits" python3 check.py $pid --tier thorough > $out/check_${pid}_thorough.txt 2>$out/check_${pid}_thorough.err; echo "exit=$? (tier thorough, restricted to the harnesses the native sweep flagged: $hits)" >> $out/check_${pid}_thorough.txt)
-    if grep -q "^VIOLATION" $out/check_${pid}_thorough.txt; then cp $out/check_${pid}_thorough.txt $out/check_$pid.txt; fi
-  fi
-fi
-if [ -z "$hits" ] || { ! grep -q "^VIOLATION" $out/check_$pid.txt && grep -q "no obligation was generated" $out/check_$pid.txt; }; then
-  (cd $V && python3 check.py $pid --tier $tier > $out/check_$pid.txt 2>$out/check_$pid.err; echo "exit=$? (tier $tier, full check; native sweep flagged nothing the restricted runs could decide)" >> $out/check_$pid.txt)
-fi
-Bif [ -n "$hits" ]; then
-  (cd $V && VERIF_ONLY="$hits" python3 check.py $pid --tier $tier > $out/check_$pid.txt 2>$out/check_$pid.err; echo "exit=$? (tier $tier, restricted to the harnesses the native sweep flagged: $hits)" >> $out/check_$pid.txt)
-  if ! grep -q "^VIOLATION" $out/check_$pid.txt && [ "$tier" = quick ]; then
-    # the flagged harnesses may belong to the thorough tier only (larger bounds, slow ones)
-    (cd $V && VERIF_ONLY="$hits" python3 check.py $pid --tier thorough > $out/check_${pid}_thorough.txt 2>$out/check_${pid}_thorough.err; echo "exit=$? (tier thorough, restricted to the harnesses the native sweep flagged: $hits)" >> $out/check_${pid}_thorough.txt)
-    if grep -q "^VIOLATION" $out/check_${pid}_thorough.txt; then cp $out/check_${pid}_thorough.txt $out/check_$pid.txt; fi
-  fi
-fi
-if [ -z "$hits" ] || { ! grep -q "^VIOLATION" $out/check_$pid.txt && grep -q "no obligation was generated" $out/check_$pid.txt; }; then
-  (cd $V && python3 check.py $pid --tier $tier > $out/check_$pid.txt 2>$out/check_$pid.err; echo "exit=$? (tier $tier, full check; native sweep flagged nothing the restricted runs could decide)" >> $out/check_$pid.txt)
-fi
-Aif [ -n "$hits" ]; then
-  (cd $V && VERIF_ONLY="$hits" python3 check.py $pid --tier $tier > $out/check_$pid.txt 2>$out/check_$pid.err; echo "exit=$? (tier $tier, restricted to the harnesses the native sweep flagged: $hits)" >> $out/check_$pid.txt)
-  if ! grep -q "^VIOLATION" $out/check_$pid.txt && [ "$tier" = quick ]; then
-    # the flagged harnesses may belong to the thorough tier only (larger bounds, slow ones)
-    (cd $V && VERIF_ONLY="$hits" python3 check.py $pid --tier thorough > $out/check_${pid}_thorough.txt 2>$out/check_${pid}_thorough.err; echo "exit=$? (tier thorough, restricted to the harnesses the native sweep flagged: $hits)" >> $out/check_${pid}_thorough.txt)
-    if grep -q "^VIOLATION" $out/check_${pid}_thorough.txt; then cp $out/check_${pid}_thorough.txt $out/check_$pid.txt; fi
-  fi
-fi
-if [ -z "$hits" ] || { ! grep -q "^VIOLATION" $out/check_$pid.txt && grep -q "no obligation was generated" $out/check_$pid.txt; }; then
-  (cd $V && python3 check.py $pid --tier $tier > $out/check_$pid.txt 2>$out/check_$pid.err; echo "exit=$? (tier $tier, full check; native sweep flagged nothing the restricted runs could decide)" >> $out/check_$pid.txt)
-fi
-Sif [ -n "$hits" ]; then
-  (cd $V && VERIF_ONLY="$hits" python3 check.py $pid --tier $tier > $out/check_$pid.txt 2>$out/check_$pid.err; echo "exit=$? (tier $tier, restricted to the harnesses the native sweep flagged: $hits)" >> $out/check_$pid.txt)
-  if ! grep -q "^VIOLATION" $out/check_$pid.txt && [ "$tier" = quick ]; then
-    # the flagged harnesses may belong to the thorough tier only (larger bounds, slow ones)
-    (cd $V && VERIF_ONLY="$hits" python3 check.py $pid --tier thorough > $out/check_${pid}_thorough.txt 2>$out/check_${pid}_thorough.err; echo "exit=$? (tier thorough, restricted to the harnesses the native sweep flagged: $hits)" >> $out/check_${pid}_thorough.txt)
-    if grep -q "^VIOLATION" $out/check_${pid}_thorough.txt; then cp $out/check_${pid}_thorough.txt $out/check_$pid.txt; fi
-  fi
-fi
-if [ -z "$hits" ] || { ! grep -q "^VIOLATION" $out/check_$pid.txt && grep -q "no obligation was generated" $out/check_$pid.txt; }; then
-  (cd $V && python3 check.py $pid --tier $tier > $out/check_$pid.txt 2>$out/check_$pid.err; echo "exit=$? (tier $tier, full check; native sweep flagged nothing the restricted runs could decide)" >> $out/check_$pid.txt)
-fi
-Eif [ -n "$hits" ]; then
-  (cd $V && VERIF_ONLY="$hits" python3 check.py $pid --tier $tier > $out/check_$pid.txt 2>$out/check_$pid.err; echo "exit=$? (tier $tier, restricted to the harnesses the native sweep flagged: $hits)" >> $out/check_$pid.txt)
-  if ! grep -q "^VIOLATION" $out/check_$pid.txt && [ "$tier" = quick ]; then
-    # the flagged harnesses may belong to the thorough tier only (larger bounds, slow ones)
-    (cd $V && VERIF_ONLY="$hits" python3 check.py $pid --tier thorough > $out/check_${pid}_thorough.txt 2>$out/check_${pid}_thorough.err; echo "exit=$? (tier thorough, restricted to the harnesses the native sweep flagged: $hits)" >> $out/check_${pid}_thorough.txt)
-    if grep -q "^VIOLATION" $out/check_${pid}_thorough.txt; then cp $out/check_${pid}_thorough.txt $out/check_$pid.txt; fi
-  fi
-fi
-if [ -z "$hits" ] || { ! grep -q "^VIOLATION" $out/check_$pid.txt && grep -q "no obligation was generated" $out/check_$pid.txt; }; then
-  (cd $V && python3 check.py $pid --tier $tier > $out/check_$pid.txt 2>$out/check_$pid.err; echo "exit=$? (tier $tier, full check; native sweep flagged nothing the restricted runs could decide)" >> $out/check_$pid.txt)
-fi
-Lif [ -n "$hits" ]; then
-  (cd $V && VERIF_ONLY="$hits" python3 check.py $pid --tier $tier > $out/check_$pid.txt 2>$out/check_$pid.err; echo "exit=$? (tier $tier, restricted to the harnesses the native sweep flagged: $hits)" >> $out/check_$pid.txt)
-  if ! grep -q "^VIOLATION" $out/check_$pid.txt && [ "$tier" = quick ]; then
-    # the flagged harnesses may belong to the thorough tier only (larger bounds, slow ones)
-    (cd $V && VERIF_ONLY="$hits" python3 check.py $pid --tier thorough > $out/check_${pid}_thorough.txt 2>$out/check_${pid}_thorough.err; echo "exit=$? (tier thorough, restricted to the harnesses the native sweep flagged: $hits)" >> $out/check_${pid}_thorough.txt)
-    if grep -q "^VIOLATION" $out/check_${pid}_thorough.txt; then cp $out/check_${pid}_thorough.txt $out/check_$pid.txt; fi
-  fi
-fi
-if [ -z "$hits" ] || { ! grep -q "^VIOLATION" $out/check_$pid.txt && grep -q "no obligation was generated" $out/check_$pid.txt; }; then
-  (cd $V && python3 check.py $pid --tier $tier > $out/check_$pid.txt 2>$out/check_$pid.err; echo "exit=$? (tier $tier, full check; native sweep flagged nothing the restricted runs could decide)" >> $out/check_$pid.txt)
-fi
-Iif [ -n "$hits" ]; then
-  (cd $V && VERIF_ONLY="$hits" python3 check.py $pid --tier $tier > $out/check_$pid.txt 2>$out/check_$pid.err; echo "exit=$? (tier $tier, restricted to the harnesses the native sweep flagged: $hits)" >> $out/check_$pid.txt)
-  if ! grep -q "^VIOLATION" $out/check_$pid.txt && [ "$tier" = quick ]; then
-    # the flagged harnesses may belong to the thorough tier only (larger bounds, slow ones)
-    (cd $V && VERIF_ONLY="$hits" python3 check.py $pid --tier thorough > $out/check_${pid}_thorough.txt 2>$out/check_${pid}_thorough.err; echo "exit=$? (tier thorough, restricted to the harnesses the native sweep flagged: $hits)" >> $out/check_${pid}_thorough.txt)
-    if grep -q "^VIOLATION" $out/check_${pid}_thorough.txt; then cp $out/check_${pid}_thorough.txt $out/check_$pid.txt; fi
-  fi
-fi
-if [ -z "$hits" ] || { ! grep -q "^VIOLATION" $out/check_$pid.txt && grep -q "no obligation was generated" $out/check_$pid.txt; }; then
-  (cd $V && python3 check.py $pid --tier $tier > $out/check_$pid.txt 2>$out/check_$pid.err; echo "exit=$? (tier $tier, full check; native sweep flagged nothing the restricted runs could decide)" >> $out/check_$pid.txt)
-fi
-Nif [ -n "$hits" ]; then
-  (cd $V && VERIF_ONLY="$hits" python3 check.py $pid --tier $tier > $out/check_$pid.txt 2>$out/check_$pid.err; echo "exit=$? (tier $tier, restricted to the harnesses the native sweep flagged: $hits)" >> $out/check_$pid.txt)
-  if ! grep -q "^VIOLATION" $out/check_$pid.txt && [ "$tier" = quick ]; then
-    # the flagged harnesses may belong to the thorough tier only (larger bounds, slow ones)
-    (cd $V && VERIF_ONLY="$hits" python3 check.py $pid --tier thorough > $out/check_${pid}_thorough.txt 2>$out/check_${pid}_thorough.err; echo "exit=$? (tier thorough, restricted to the harnesses the native sweep flagged: $hits)" >> $out/check_${pid}_thorough.txt)
-    if grep -q "^VIOLATION" $out/check_${pid}_thorough.txt; then cp $out/check_${pid}_thorough.txt $out/check_$pid.txt; fi
-  fi
-fi
-if [ -z "$hits" ] || { ! grep -q "^VIOLATION" $out/check_$pid.txt && grep -q "no obligation was generated" $out/check_$pid.txt; }; then
-  (cd $V && python3 check.py $pid --tier $tier > $out/check_$pid.txt 2>$out/check_$pid.err; echo "exit=$? (tier $tier, full check; native sweep flagged nothing the restricted runs could decide)" >> $out/check_$pid.txt)
-fi
-Eif [ -n "$hits" ]; then
-  (cd $V && VERIF_ONLY="$hits" python3 check.py $pid --tier $tier > $out/check_$pid.txt 2>$out/check_$pid.err; echo "exit=$? (tier $tier, restricted to the harnesses the native sweep flagged: $hits)" >> $out/check_$pid.txt)
-  if ! grep -q "^VIOLATION" $out/check_$pid.txt && [ "$tier" = quick ]; then
-    # the flagged harnesses may belong to the thorough tier only (larger bounds, slow ones)
-    (cd $V && VERIF_ONLY="$hits" python3 check.py $pid --tier thorough > $out/check_${pid}_thorough.txt 2>$out/check_${pid}_thorough.err; echo "exit=$? (tier thorough, restricted to the harnesses the native sweep flagged: $hits)" >> $out/check_${pid}_thorough.txt)
-    if grep -q "^VIOLATION" $out/check_${pid}_thorough.txt; then cp $out/check_${pid}_thorough.txt $out/check_$pid.txt; fi
-  fi
-fi
-if [ -z "$hits" ] || { ! grep -q "^VIOLATION" $out/check_$pid.txt && grep -q "no obligation was generated" $out/check_$pid.txt; }; then
-  (cd $V && python3 check.py $pid --tier $tier > $out/check_$pid.txt 2>$out/check_$pid.err; echo "exit=$? (tier $tier, full check; native sweep flagged nothing the restricted runs could decide)" >> $out/check_$pid.txt)
-fi
-=if [ -n "$hits" ]; then
-  (cd $V && VERIF_ONLY="$hits" python3 check.py $pid --tier $tier > $out/check_$pid.txt 2>$out/check_$pid.err; echo "exit=$? (tier $tier, restricted to the harnesses the native sweep flagged: $hits)" >> $out/check_$pid.txt)
-  if ! grep -q "^VIOLATION" $out/check_$pid.txt && [ "$tier" = quick ]; then
-    # the flagged harnesses may belong to the thorough tier only (larger bounds, slow ones)
-    (cd $V && VERIF_ONLY="$hits" python3 check.py $pid --tier thorough > $out/check_${pid}_thorough.txt 2>$out/check_${pid}_thorough.err; echo "exit=$? (tier thorough, restricted to the harnesses the native sweep flagged: $hits)" >> $out/check_${pid}_thorough.txt)
-    if grep -q "^VIOLATION" $out/check_${pid}_thorough.txt; then cp $out/check_${pid}_thorough.txt $out/check_$pid.txt; fi
-  fi
-fi
-if [ -z "$hits" ] || { ! grep -q "^VIOLATION" $out/check_$pid.txt && grep -q "no obligation was generated" $out/check_$pid.txt; }; then
-  (cd $V && python3 check.py $pid --tier $tier > $out/check_$pid.txt 2>$out/check_$pid.err; echo "exit=$? (tier $tier, full check; native sweep flagged nothing the restricted runs could decide)" >> $out/check_$pid.txt)
-fi
-/if [ -n "$hits" ]; then
-  (cd $V && VERIF_ONLY="$hits" python3 check.py $pid --tier $tier > $out/check_$pid.txt 2>$out/check_$pid.err; echo "exit=$? (tier $tier, restricted to the harnesses the native sweep flagged: $hits)" >> $out/check_$pid.txt)
-  if ! grep -q "^VIOLATION" $out/check_$pid.txt && [ "$tier" = quick ]; then
-    # the flagged harnesses may belong to the thorough tier only (larger bounds, slow ones)
-    (cd $V && VERIF_ONLY="$hits" python3 check.py $pid --tier thorough > $out/check_${pid}_thorough.txt 2>$out/check_${pid}_thorough.err; echo "exit=$? (tier thorough, restricted to the harnesses the native sweep flagged: $hits)" >> $out/check_${pid}_thorough.txt)
-    if grep -q "^VIOLATION" $out/check_${pid}_thorough.txt; then cp $out/check_${pid}_thorough.txt $out/check_$pid.txt; fi
-  fi
-fi
-if [ -z "$hits" ] || { ! grep -q "^VIOLATION" $out/check_$pid.txt && grep -q "no obligation was generated" $out/check_$pid.txt; }; then
-  (cd $V && python3 check.py $pid --tier $tier > $out/check_$pid.txt 2>$out/check_$pid.err; echo "exit=$? (tier $tier, full check; native sweep flagged nothing the restricted runs could decide)" >> $out/check_$pid.txt)
-fi
-tif [ -n "$hits" ]; then
-  (cd $V && VERIF_ONLY="$hits" python3 check.py $pid --tier $tier > $out/check_$pid.txt 2>$out/check_$pid.err; echo "exit=$? (tier $tier, restricted to the harnesses the native sweep flagged: $hits)" >> $out/check_$pid.txt)
-  if ! grep -q "^VIOLATION" $out/check_$pid.txt && [ "$tier" = quick ]; then
-    # the flagged harnesses may belong to the thorough tier only (larger bounds, slow ones)
-    (cd $V && VERIF_ONLY="$hits" python3 check.py $pid --tier thorough > $out/check_${pid}_thorough.txt 2>$out/check_${pid}_thorough.err; echo "exit=$? (tier thorough, restricted to the harnesses the native sweep flagged: $hits)" >> $out/check_${pid}_thorough.txt)
-    if grep -q "^VIOLATION" $out/check_${pid}_thorough.txt; then cp $out/check_${pid}_thorough.txt $out/check_$pid.txt; fi
-  fi
-fi
-if [ -z "$hits" ] || { ! grep -q "^VIOLATION" $out/check_$pid.txt && grep -q "no obligation was generated" $out/check_$pid.txt; }; then
-  (cd $V && python3 check.py $pid --tier $tier > $out/check_$pid.txt 2>$out/check_$pid.err; echo "exit=$? (tier $tier, full check; native sweep flagged nothing the restricted runs could decide)" >> $out/check_$pid.txt)
-fi
-mif [ -n "$hits" ]; then
-  (cd $V && VERIF_ONLY="$hits" python3 check.py $pid --tier $tier > $out/check_$pid.txt 2>$out/check_$pid.err; echo "exit=$? (tier $tier, restricted to the harnesses the native sweep flagged: $hits)" >> $out/check_$pid.txt)
-  if ! grep -q "^VIOLATION" $out/check_$pid.txt && [ "$tier" = quick ]; then
-    # the flagged harnesses may belong to the thorough tier only (larger bounds, slow ones)
-    (cd $V && VERIF_ONLY="$hits" python3 check.py $pid --tier thorough > $out/check_${pid}_thorough.txt 2>$out/check_${pid}_thorough.err; echo "exit=$? (tier thorough, restricted to the harnesses the native sweep flagged: $hits)" >> $out/check_${pid}_thorough.txt)
-    if grep -q "^VIOLATION" $out/check_${pid}_thorough.txt; then cp $out/check_${pid}_thorough.txt $out/check_$pid.txt; fi
-  fi
-fi
-if [ -z "$hits" ] || { ! grep -q "^VIOLATION" $out/check_$pid.txt && grep -q "no obligation was generated" $out/check_$pid.txt; }; then
-  (cd $V && python3 check.py $pid --tier $tier > $out/check_$pid.txt 2>$out/check_$pid.err; echo "exit=$? (tier $tier, full check; native sweep flagged nothing the restricted runs could decide)" >> $out/check_$pid.txt)
-fi
-pif [ -n "$hits" ]; then
-  (cd $V && VERIF_ONLY="$hits" python3 check.py $pid --tier $tier > $out/check_$pid.txt 2>$out/check_$pid.err; echo "exit=$? (tier $tier, restricted to the harnesses the native sweep flagged: $hits)" >> $out/check_$pid.txt)
-  if ! grep -q "^VIOLATION" $out/check_$pid.txt && [ "$tier" = quick ]; then
-    # the flagged harnesses may belong to the thorough tier only (larger bounds, slow ones)
-    (cd $V && VERIF_ONLY="$hits" python3 check.py $pid --tier thorough > $out/check_${pid}_thorough.txt 2>$out/check_${pid}_thorough.err; echo "exit=$? (tier thorough, restricted to the harnesses the native sweep flagged: $hits)" >> $out/check_${pid}_thorough.txt)
-    if grep -q "^VIOLATION" $out/check_${pid}_thorough.txt; then cp $out/check_${pid}_thorough.txt $out/check_$pid.txt; fi
-  fi
-fi
-if [ -z "$hits" ] || { ! grep -q "^VIOLATION" $out/check_$pid.txt && grep -q "no obligation was generated" $out/check_$pid.txt; }; then
-  (cd $V && python3 check.py $pid --tier $tier > $out/check_$pid.txt 2>$out/check_$pid.err; echo "exit=$? (tier $tier, full check; native sweep flagged nothing the restricted runs could decide)" >> $out/check_$pid.txt)
-fi
-/if [ -n "$hits" ]; then
-  (cd $V && VERIF_ONLY="$hits" python3 check.py $pid --tier $tier > $out/check_$pid.txt 2>$out/check_$pid.err; echo "exit=$? (tier $tier, restricted to the harnesses the native sweep flagged: $hits)" >> $out/check_$pid.txt)
-  if ! grep -q "^VIOLATION" $out/check_$pid.txt && [ "$tier" = quick ]; then
-    # the flagged harnesses may belong to the thorough tier only (larger bounds, slow ones)
-    (cd $V && VERIF_ONLY="$hits" python3 check.py $pid --tier thorough > $out/check_${pid}_thorough.txt 2>$out/check_${pid}_thorough.err; echo "exit=$? (tier thorough, restricted to the harnesses the native sweep flagged: $hits)" >> $out/check_${pid}_thorough.txt)
-    if grep -q "^VIOLATION" $out/check_${pid}_thorough.txt; then cp $out/check_${pid}_thorough.txt $out/check_$pid.txt; fi
-  fi
-fi
-if [ -z "$hits" ] || { ! grep -q "^VIOLATION" $out/check_$pid.txt && grep -q "no obligation was generated" $out/check_$pid.txt; }; then
-  (cd $V && python3 check.py $pid --tier $tier > $out/check_$pid.txt 2>$out/check_$pid.err; echo "exit=$? (tier $tier, full check; native sweep flagged nothing the restricted runs could decide)" >> $out/check_$pid.txt)
-fi
-sif [ -n "$hits" ]; then
-  (cd $V && VERIF_ONLY="$hits" python3 check.py $pid --tier $tier > $out/check_$pid.txt 2>$out/check_$pid.err; echo "exit=$? (tier $tier, restricted to the harnesses the native sweep flagged: $hits)" >> $out/check_$pid.txt)
-  if ! grep -q "^VIOLATION" $out/check_$pid.txt && [ "$tier" = quick ]; then
-    # the flagged harnesses may belong to the thorough tier only (larger bounds, slow ones)
-    (cd $V && VERIF_ONLY="$hits" python3 check.py $pid --tier thorough > $out/check_${pid}_thorough.txt 2>$out/check_${pid}_thorough.err; echo "exit=$? (tier thorough, restricted to the harnesses the native sweep flagged: $hits)" >> $out/check_${pid}_thorough.txt)
-    if grep -q "^VIOLATION" $out/check_${pid}_thorough.txt; then cp $out/check_${pid}_thorough.txt $out/check_$pid.txt; fi
-  fi
-fi
-if [ -z "$hits" ] || { ! grep -q "^VIOLATION" $out/check_$pid.txt && grep -q "no obligation was generated" $out/check_$pid.txt; }; then
-  (cd $V && python3 check.py $pid --tier $tier > $out/check_$pid.txt 2>$out/check_$pid.err; echo "exit=$? (tier $tier, full check; native sweep flagged nothing the restricted runs could decide)" >> $out/check_$pid.txt)
-fi
-eif [ -n "$hits" ]; then
-  (cd $V && VERIF_ONLY="$hits" python3 check.py $pid --tier $tier > $out/check_$pid.txt 2>$out/check_$pid.err; echo "exit=$? (tier $tier, restricted to the harnesses the native sweep flagged: $hits)" >> $out/check_$pid.txt)
-  if ! grep -q "^VIOLATION" $out/check_$pid.txt && [ "$tier" = quick ]; then
-    # the flagged harnesses may belong to the thorough tier only (larger bounds, slow ones)
-    (cd $V && VERIF_ONLY="$hits" python3 check.py $pid --tier thorough > $out/check_${pid}_thorough.txt 2>$out/check_${pid}_thorough.err; echo "exit=$? (tier thorough, restricted to the harnesses the native sweep flagged: $hits)" >> $out/check_${pid}_thorough.txt)
-    if grep -q "^VIOLATION" $out/check_${pid}_thorough.txt; then cp $out/check_${pid}_thorough.txt $out/check_$pid.txt; fi
-  fi
-fi
-if [ -z "$hits" ] || { ! grep -q "^VIOLATION" $out/check_$pid.txt && grep -q "no obligation was generated" $out/check_$pid.txt; }; then
-  (cd $V && python3 check.py $pid --tier $tier > $out/check_$pid.txt 2>$out/check_$pid.err; echo "exit=$? (tier $tier, full check; native sweep flagged nothing the restricted runs could decide)" >> $out/check_$pid.txt)
-fi
-eif [ -n "$hits" ]; then
-  (cd $V && VERIF_ONLY="$hits" python3 check.py $pid --tier $tier > $out/check_$pid.txt 2>$out/check_$pid.err; echo "exit=$? (tier $tier, restricted to the harnesses the native sweep flagged: $hits)" >> $out/check_$pid.txt)
-  if ! grep -q "^VIOLATION" $out/check_$pid.txt && [ "$tier" = quick ]; then
-    # the flagged harnesses may belong to the thorough tier only (larger bounds, slow ones)
-    (cd $V && VERIF_ONLY="$hits" python3 check.py $pid --tier thorough > $out/check_${pid}_thorough.txt 2>$out/check_${pid}_thorough.err; echo "exit=$? (tier thorough, restricted to the harnesses the native sweep flagged: $hits)" >> $out/check_${pid}_thorough.txt)
-    if grep -q "^VIOLATION" $out/check_${pid}_thorough.txt; then cp $out/check_${pid}_thorough.txt $out/check_$pid.txt; fi
-  fi
-fi
-if [ -z "$hits" ] || { ! grep -q "^VIOLATION" $out/check_$pid.txt && grep -q "no obligation was generated" $out/check_$pid.txt; }; then
-  (cd $V && python3 check.py $pid --tier $tier > $out/check_$pid.txt 2>$out/check_$pid.err; echo "exit=$? (tier $tier, full check; native sweep flagged nothing the restricted runs could decide)" >> $out/check_$pid.txt)
-fi
-dif [ -n "$hits" ]; then
-  (cd $V && VERIF_ONLY="$hits" python3 check.py $pid --tier $tier > $out/check_$pid.txt 2>$out/check_$pid.err; echo "exit=$? (tier $tier, restricted to the harnesses the native sweep flagged: $hits)" >> $out/check_$pid.txt)
-  if ! grep -q "^VIOLATION" $out/check_$pid.txt && [ "$tier" = quick ]; then
-    # the flagged harnesses may belong to the thorough tier only (larger bounds, slow ones)
-    (cd $V && VERIF_ONLY="$hits" python3 check.py $pid --tier thorough > $out/check_${pid}_thorough.txt 2>$out/check_${pid}_thorough.err; echo "exit=$? (tier thorough, restricted to the harnesses the native sweep flagged: $hits)" >> $out/check_${pid}_thorough.txt)
-    if grep -q "^VIOLATION" $out/check_${pid}_thorough.txt; then cp $out/check_${pid}_thorough.txt $out/check_$pid.txt; fi
-  fi
-fi
-if [ -z "$hits" ] || { ! grep -q "^VIOLATION" $out/check_$pid.txt && grep -q "no obligation was generated" $out/check_$pid.txt; }; then
-  (cd $V && python3 check.py $pid --tier $tier > $out/check_$pid.txt 2>$out/check_$pid.err; echo "exit=$? (tier $tier, full check; native sweep flagged nothing the restricted runs could decide)" >> $out/check_$pid.txt)
-fi
-rif [ -n "$hits" ]; then
-  (cd $V && VERIF_ONLY="$hits" python3 check.py $pid --tier $tier > $out/check_$pid.txt 2>$out/check_$pid.err; echo "exit=$? (tier $tier, restricted to the harnesses the native sweep flagged: $hits)" >> $out/check_$pid.txt)
-  if ! grep -q "^VIOLATION" $out/check_$pid.txt && [ "$tier" = quick ]; then
-    # the flagged harnesses may belong to the thorough tier only (larger bounds, slow ones)
-    (cd $V && VERIF_ONLY="$hits" python3 check.py $pid --tier thorough > $out/check_${pid}_thorough.txt 2>$out/check_${pid}_thorough.err; echo "exit=$? (tier thorough, restricted to the harnesses the native sweep flagged: $hits)" >> $out/check_${pid}_thorough.txt)
-    if grep -q "^VIOLATION" $out/check_${pid}_thorough.txt; then cp $out/check_${pid}_thorough.txt $out/check_$pid.txt; fi
-  fi
-fi
-if [ -z "$hits" ] || { ! grep -q "^VIOLATION" $out/check_$pid.txt && grep -q "no obligation was generated" $out/check_$pid.txt; }; then
-  (cd $V && python3 check.py $pid --tier $tier > $out/check_$pid.txt 2>$out/check_$pid.err; echo "exit=$? (tier $tier, full check; native sweep flagged nothing the restricted runs could decide)" >> $out/check_$pid.txt)
-fi
-uif [ -n "$hits" ]; then
-  (cd $V && VERIF_ONLY="$hits" python3 check.py $pid --tier $tier > $out/check_$pid.txt 2>$out/check_$pid.err; echo "exit=$? (tier $tier, restricted to the harnesses the native sweep flagged: $hits)" >> $out/check_$pid.txt)
-  if ! grep -q "^VIOLATION" $out/check_$pid.txt && [ "$tier" = quick ]; then
-    # the flagged harnesses may belong to the thorough tier only (larger bounds, slow ones)
-    (cd $V && VERIF_ONLY="$hits" python3 check.py $pid --tier thorough > $out/check_${pid}_thorough.txt 2>$out/check_${pid}_thorough.err; echo "exit=$? (tier thorough, restricted to the harnesses the native sweep flagged: $hits)" >> $out/check_${pid}_thorough.txt)
-    if grep -q "^VIOLATION" $out/check_${pid}_thorough.txt; then cp $out/check_${pid}_thorough.txt $out/check_$pid.txt; fi
-  fi
-fi
-if [ -z "$hits" ] || { ! grep -q "^VIOLATION" $out/check_$pid.txt && grep -q "no obligation was generated" $out/check_$pid.txt; }; then
-  (cd $V && python3 check.py $pid --tier $tier > $out/check_$pid.txt 2>$out/check_$pid.err; echo "exit=$? (tier $tier, full check; native sweep flagged nothing the restricted runs could decide)" >> $out/check_$pid.txt)
-fi
-nif [ -n "$hits" ]; then
-  (cd $V && VERIF_ONLY="$hits" python3 check.py $pid --tier $tier > $out/check_$pid.txt 2>$out/check_$pid.err; echo "exit=$? (tier $tier, restricted to the harnesses the native sweep flagged: $hits)" >> $out/check_$pid.txt)
-  if ! grep -q "^VIOLATION" $out/check_$pid.txt && [ "$tier" = quick ]; then
-    # the flagged harnesses may belong to the thorough tier only (larger bounds, slow ones)
-    (cd $V && VERIF_ONLY="$hits" python3 check.py $pid --tier thorough > $out/check_${pid}_thorough.txt 2>$out/check_${pid}_thorough.err; echo "exit=$? (tier thorough, restricted to the harnesses the native sweep flagged: $hits)" >> $out/check_${pid}_thorough.txt)
-    if grep -q "^VIOLATION" $out/check_${pid}_thorough.txt; then cp $out/check_${pid}_thorough.txt $out/check_$pid.txt; fi
-  fi
-fi
-if [ -z "$hits" ] || { ! grep -q "^VIOLATION" $out/check_$pid.txt && grep -q "no obligation was generated" $out/check_$pid.txt; }; then
-  (cd $V && python3 check.py $pid --tier $tier > $out/check_$pid.txt 2>$out/check_$pid.err; echo "exit=$? (tier $tier, full check; native sweep flagged nothing the restricted runs could decide)" >> $out/check_$pid.txt)
-fi
-/if [ -n "$hits" ]; then
-  (cd $V && VERIF_ONLY="$hits" python3 check.py $pid --tier $tier > $out/check_$pid.txt 2>$out/check_$pid.err; echo "exit=$? (tier $tier, restricted to the harnesses the native sweep flagged: $hits)" >> $out/check_$pid.txt)
-  if ! grep -q "^VIOLATION" $out/check_$pid.txt && [ "$tier" = quick ]; then
-    # the flagged harnesses may belong to the thorough tier only (larger bounds, slow ones)
-    (cd $V && VERIF_ONLY="$hits" python3 check.py $pid --tier thorough > $out/check_${pid}_thorough.txt 2>$out/check_${pid}_thorough.err; echo "exit=$? (tier thorough, restricted to the harnesses the native sweep flagged: $hits)" >> $out/check_${pid}_thorough.txt)
-    if grep -q "^VIOLATION" $out/check_${pid}_thorough.txt; then cp $out/check_${pid}_thorough.txt $out/check_$pid.txt; fi
-  fi
-fi
-if [ -z "$hits" ] || { ! grep -q "^VIOLATION" $out/check_$pid.txt && grep -q "no obligation was generated" $out/check_$pid.txt; }; then
-  (cd $V && python3 check.py $pid --tier $tier > $out/check_$pid.txt 2>$out/check_$pid.err; echo "exit=$? (tier $tier, full check; native sweep flagged nothing the restricted runs could decide)" >> $out/check_$pid.txt)
-fi
-bif [ -n "$hits" ]; then
-  (cd $V && VERIF_ONLY="$hits" python3 check.py $pid --tier $tier > $out/check_$pid.txt 2>$out/check_$pid.err; echo "exit=$? (tier $tier, restricted to the harnesses the native sweep flagged: $hits)" >> $out/check_$pid.txt)
-  if ! grep -q "^VIOLATION" $out/check_$pid.txt && [ "$tier" = quick ]; then
-    # the flagged harnesses may belong to the thorough tier only (larger bounds, slow ones)
-    (cd $V && VERIF_ONLY="$hits" python3 check.py $pid --tier thorough > $out/check_${pid}_thorough.txt 2>$out/check_${pid}_thorough.err; echo "exit=$? (tier thorough, restricted to the harnesses the native sweep flagged: $hits)" >> $out/check_${pid}_thorough.txt)
-    if grep -q "^VIOLATION" $out/check_${pid}_thorough.txt; then cp $out/check_${pid}_thorough.txt $out/check_$pid.txt; fi
-  fi
-fi
-if [ -z "$hits" ] || { ! grep -q "^VIOLATION" $out/check_$pid.txt && grep -q "no obligation was generated" $out/check_$pid.txt; }; then
-  (cd $V && python3 check.py $pid --tier $tier > $out/check_$pid.txt 2>$out/check_$pid.err; echo "exit=$? (tier $tier, full check; native sweep flagged nothing the restricted runs could decide)" >> $out/check_$pid.txt)
-fi
-aif [ -n "$hits" ]; then
-  (cd $V && VERIF_ONLY="$hits" python3 check.py $pid --tier $tier > $out/check_$pid.txt 2>$out/check_$pid.err; echo "exit=$? (tier $tier, restricted to the harnesses the native sweep flagged: $hits)" >> $out/check_$pid.txt)
-  if ! grep -q "^VIOLATION" $out/check_$pid.txt && [ "$tier" = quick ]; then
-    # the flagged harnesses may belong to the thorough tier only (larger bounds, slow ones)
-    (cd $V && VERIF_ONLY="$hits" python3 check.py $pid --tier thorough > $out/check_${pid}_thorough.txt 2>$out/check_${pid}_thorough.err; echo "exit=$? (tier thorough, restricted to the harnesses the native sweep flagged: $hits)" >> $out/check_${pid}_thorough.txt)
-    if grep -q "^VIOLATION" $out/check_${pid}_thorough.txt; then cp $out/check_${pid}_thorough.txt $out/check_$pid.txt; fi
-  fi
-fi
-if [ -z "$hits" ] || { ! grep -q "^VIOLATION" $out/check_$pid.txt && grep -q "no obligation was generated" $out/check_$pid.txt; }; then
-  (cd $V && python3 check.py $pid --tier $tier > $out/check_$pid.txt 2>$out/check_$pid.err; echo "exit=$? (tier $tier, full check; native sweep flagged nothing the restricted runs could decide)" >> $out/check_$pid.txt)
-fi
-sif [ -n "$hits" ]; then
-  (cd $V && VERIF_ONLY="$hits" python3 check.py $pid --tier $tier > $out/check_$pid.txt 2>$out/check_$pid.err; echo "exit=$? (tier $tier, restricted to the harnesses the native sweep flagged: $hits)" >> $out/check_$pid.txt)
-  if ! grep -q "^VIOLATION" $out/check_$pid.txt && [ "$tier" = quick ]; then
-    # the flagged harnesses may belong to the thorough tier only (larger bounds, slow ones)
-    (cd $V && VERIF_ONLY="$hits" python3 check.py $pid --tier thorough > $out/check_${pid}_thorough.txt 2>$out/check_${pid}_thorough.err; echo "exit=$? (tier thorough, restricted to the harnesses the native sweep flagged: $hits)" >> $out/check_${pid}_thorough.txt)
-    if grep -q "^VIOLATION" $out/check_${pid}_thorough.txt; then cp $out/check_${pid}_thorough.txt $out/check_$pid.txt; fi
-  fi
-fi
-if [ -z "$hits" ] || { ! grep -q "^VIOLATION" $out/check_$pid.txt && grep -q "no obligation was generated" $out/check_$pid.txt; }; then
-  (cd $V && python3 check.py $pid --tier $tier > $out/check_$pid.txt 2>$out/check_$pid.err; echo "exit=$? (tier $tier, full check; native sweep flagged nothing the restricted runs could decide)" >> $out/check_$pid.txt)
-fi
-eif [ -n "$hits" ]; then
-  (cd $V && VERIF_ONLY="$hits" python3 check.py $pid --tier $tier > $out/check_$pid.txt 2>$out/check_$pid.err; echo "exit=$? (tier $tier, restricted to the harnesses the native sweep flagged: $hits)" >> $out/check_$pid.txt)
-  if ! grep -q "^VIOLATION" $out/check_$pid.txt && [ "$tier" = quick ]; then
-    # the flagged harnesses may belong to the thorough tier only (larger bounds, slow ones)
-    (cd $V && VERIF_ONLY="$hits" python3 check.py $pid --tier thorough > $out/check_${pid}_thorough.txt 2>$out/check_${pid}_thorough.err; echo "exit=$? (tier thorough, restricted to the harnesses the native sweep flagged: $hits)" >> $out/check_${pid}_thorough.txt)
-    if grep -q "^VIOLATION" $out/check_${pid}_thorough.txt; then cp $out/check_${pid}_thorough.txt $out/check_$pid.txt; fi
-  fi
-fi
-if [ -z "$hits" ] || { ! grep -q "^VIOLATION" $out/check_$pid.txt && grep -q "no obligation was generated" $out/check_$pid.txt; }; then
-  (cd $V && python3 check.py $pid --tier $tier > $out/check_$pid.txt 2>$out/check_$pid.err; echo "exit=$? (tier $tier, full check; native sweep flagged nothing the restricted runs could decide)" >> $out/check_$pid.txt)
-fi
-lif [ -n "$hits" ]; then
-  (cd $V && VERIF_ONLY="$hits" python3 check.py $pid --tier $tier > $out/check_$pid.txt 2>$out/check_$pid.err; echo "exit=$? (tier $tier, restricted to the harnesses the native sweep flagged: $hits)" >> $out/check_$pid.txt)
-  if ! grep -q "^VIOLATION" $out/check_$pid.txt && [ "$tier" = quick ]; then
-    # the flagged harnesses may belong to the thorough tier only (larger bounds, slow ones)
-    (cd $V && VERIF_ONLY="$hits" python3 check.py $pid --tier thorough > $out/check_${pid}_thorough.txt 2>$out/check_${pid}_thorough.err; echo "exit=$? (tier thorough, restricted to the harnesses the native sweep flagged: $hits)" >> $out/check_${pid}_thorough.txt)
-    if grep -q "^VIOLATION" $out/check_${pid}_thorough.txt; then cp $out/check_${pid}_thorough.txt $out/check_$pid.txt; fi
-  fi
-fi
-if [ -z "$hits" ] || { ! grep -q "^VIOLATION" $out/check_$pid.txt && grep -q "no obligation was generated" $out/check_$pid.txt; }; then
-  (cd $V && python3 check.py $pid --tier $tier > $out/check_$pid.txt 2>$out/check_$pid.err; echo "exit=$? (tier $tier, full check; native sweep flagged nothing the restricted runs could decide)" >> $out/check_$pid.txt)
-fi
-iif [ -n "$hits" ]; then
-  (cd $V && VERIF_ONLY="$hits" python3 check.py $pid --tier $tier > $out/check_$pid.txt 2>$out/check_$pid.err; echo "exit=$? (tier $tier, restricted to the harnesses the native sweep flagged: $hits)" >> $out/check_$pid.txt)
-  if ! grep -q "^VIOLATION" $out/check_$pid.txt && [ "$tier" = quick ]; then
-    # the flagged harnesses may belong to the thorough tier only (larger bounds, slow ones)
-    (cd $V && VERIF_ONLY="$hits" python3 check.py $pid --tier thorough > $out/check_${pid}_thorough.txt 2>$out/check_${pid}_thorough.err; echo "exit=$? (tier thorough, restricted to the harnesses the native sweep flagged: $hits)" >> $out/check_${pid}_thorough.txt)
-    if grep -q "^VIOLATION" $out/check_${pid}_thorough.txt; then cp $out/check_${pid}_thorough.txt $out/check_$pid.txt; fi
-  fi
-fi
-if [ -z "$hits" ] || { ! grep -q "^VIOLATION" $out/check_$pid.txt && grep -q "no obligation was generated" $out/check_$pid.txt; }; then
-  (cd $V && python3 check.py $pid --tier $tier > $out/check_$pid.txt 2>$out/check_$pid.err; echo "exit=$? (tier $tier, full check; native sweep flagged nothing the restricted runs could decide)" >> $out/check_$pid.txt)
-fi
-nif [ -n "$hits" ]; then
-  (cd $V && VERIF_ONLY="$hits" python3 check.py $pid --tier $tier > $out/check_$pid.txt 2>$out/check_$pid.err; echo "exit=$? (tier $tier, restricted to the harnesses the native sweep flagged: $hits)" >> $out/check_$pid.txt)
-  if ! grep -q "^VIOLATION" $out/check_$pid.txt && [ "$tier" = quick ]; then
-    # the flagged harnesses may belong to the thorough tier only (larger bounds, slow ones)
-    (cd $V && VERIF_ONLY="$hits" python3 check.py $pid --tier thorough > $out/check_${pid}_thorough.txt 2>$out/check_${pid}_thorough.err; echo "exit=$? (tier thorough, restricted to the harnesses the native sweep flagged: $hits)" >> $out/check_${pid}_thorough.txt)
-    if grep -q "^VIOLATION" $out/check_${pid}_thorough.txt; then cp $out/check_${pid}_thorough.txt $out/check_$pid.txt; fi
-  fi
-fi
-if [ -z "$hits" ] || { ! grep -q "^VIOLATION" $out/check_$pid.txt && grep -q "no obligation was generated" $out/check_$pid.txt; }; then
-  (cd $V && python3 check.py $pid --tier $tier > $out/check_$pid.txt 2>$out/check_$pid.err; echo "exit=$? (tier $tier, full check; native sweep flagged nothing the restricted runs could decide)" >> $out/check_$pid.txt)
-fi
-eif [ -n "$hits" ]; then
-  (cd $V && VERIF_ONLY="$hits" python3 check.py $pid --tier $tier > $out/check_$pid.txt 2>$out/check_$pid.err; echo "exit=$? (tier $tier, restricted to the harnesses the native sweep flagged: $hits)" >> $out/check_$pid.txt)
-  if ! grep -q "^VIOLATION" $out/check_$pid.txt && [ "$tier" = quick ]; then
-    # the flagged harnesses may belong to the thorough tier only (larger bounds, slow ones)
-    (cd $V && VERIF_ONLY="$hits" python3 check.py $pid --tier thorough > $out/check_${pid}_thorough.txt 2>$out/check_${pid}_thorough.err; echo "exit=$? (tier thorough, restricted to the harnesses the native sweep flagged: $hits)" >> $out/check_${pid}_thorough.txt)
-    if grep -q "^VIOLATION" $out/check_${pid}_thorough.txt; then cp $out/check_${pid}_thorough.txt $out/check_$pid.txt; fi
-  fi
-fi
-if [ -z "$hits" ] || { ! grep -q "^VIOLATION" $out/check_$pid.txt && grep -q "no obligation was generated" $out/check_$pid.txt; }; then
-  (cd $V && python3 check.py $pid --tier $tier > $out/check_$pid.txt 2>$out/check_$pid.err; echo "exit=$? (tier $tier, full check; native sweep flagged nothing the restricted runs could decide)" >> $out/check_$pid.txt)
-fi
-.if [ -n "$hits" ]; then
-  (cd $V && VERIF_ONLY="$hits" python3 check.py $pid --tier $tier > $out/check_$pid.txt 2>$out/check_$pid.err; echo "exit=$? (tier $tier, restricted to the harnesses the native sweep flagged: $hits)" >> $out/check_$pid.txt)
-  if ! grep -q "^VIOLATION" $out/check_$pid.txt && [ "$tier" = quick ]; then
-    # the flagged harnesses may belong to the thorough tier only (larger bounds, slow ones)
-    (cd $V && VERIF_ONLY="$hits" python3 check.py $pid --tier thorough > $out/check_${pid}_thorough.txt 2>$out/check_${pid}_thorough.err; echo "exit=$? (tier thorough, restricted to the harnesses the native sweep flagged: $hits)" >> $out/check_${pid}_thorough.txt)
-    if grep -q "^VIOLATION" $out/check_${pid}_thorough.txt; then cp $out/check_${pid}_thorough.txt $out/check_$pid.txt; fi
-  fi
-fi
-if [ -z "$hits" ] || { ! grep -q "^VIOLATION" $out/check_$pid.txt && grep -q "no obligation was generated" $out/check_$pid.txt; }; then
-  (cd $V && python3 check.py $pid --tier $tier > $out/check_$pid.txt 2>$out/check_$pid.err; echo "exit=$? (tier $tier, full check; native sweep flagged nothing the restricted runs could decide)" >> $out/check_$pid.txt)
-fi
-jif [ -n "$hits" ]; then
-  (cd $V && VERIF_ONLY="$hits" python3 check.py $pid --tier $tier > $out/check_$pid.txt 2>$out/check_$pid.err; echo "exit=$? (tier $tier, restricted to the harnesses the native sweep flagged: $hits)" >> $out/check_$pid.txt)
-  if ! grep -q "^VIOLATION" $out/check_$pid.txt && [ "$tier" = quick ]; then
-    # the flagged harnesses may belong to the thorough tier only (larger bounds, slow ones)
-    (cd $V && VERIF_ONLY="$hits" python3 check.py $pid --tier thorough > $out/check_${pid}_thorough.txt 2>$out/check_${pid}_thorough.err; echo "exit=$? (tier thorough, restricted to the harnesses the native sweep flagged: $hits)" >> $out/check_${pid}_thorough.txt)
-    if grep -q "^VIOLATION" $out/check_${pid}_thorough.txt; then cp $out/check_${pid}_thorough.txt $out/check_$pid.txt; fi
-  fi
-fi
-if [ -z "$hits" ] || { ! grep -q "^VIOLATION" $out/check_$pid.txt && grep -q "no obligation was generated" $out/check_$pid.txt; }; then
-  (cd $V && python3 check.py $pid --tier $tier > $out/check_$pid.txt 2>$out/check_$pid.err; echo "exit=$? (tier $tier, full check; native sweep flagged nothing the restricted runs could decide)" >> $out/check_$pid.txt)
-fi
-sif [ -n "$hits" ]; then
-  (cd $V && VERIF_ONLY="$hits" python3 check.py $pid --tier $tier > $out/check_$pid.txt 2>$out/check_$pid.err; echo "exit=$? (tier $tier, restricted to the harnesses the native sweep flagged: $hits)" >> $out/check_$pid.txt)
-  if ! grep -q "^VIOLATION" $out/check_$pid.txt && [ "$tier" = quick ]; then
-    # the flagged harnesses may belong to the thorough tier only (larger bounds, slow ones)
-    (cd $V && VERIF_ONLY="$hits" python3 check.py $pid --tier thorough > $out/check_${pid}_thorough.txt 2>$out/check_${pid}_thorough.err; echo "exit=$? (tier thorough, restricted to the harnesses the native sweep flagged: $hits)" >> $out/check_${pid}_thorough.txt)
-    if grep -q "^VIOLATION" $out/check_${pid}_thorough.txt; then cp $out/check_${pid}_thorough.txt $out/check_$pid.txt; fi
-  fi
-fi
-if [ -z "$hits" ] || { ! grep -q "^VIOLATION" $out/check_$pid.txt && grep -q "no obligation was generated" $out/check_$pid.txt; }; then
-  (cd $V && python3 check.py $pid --tier $tier > $out/check_$pid.txt 2>$out/check_$pid.err; echo "exit=$? (tier $tier, full check; native sweep flagged nothing the restricted runs could decide)" >> $out/check_$pid.txt)
-fi
-oif [ -n "$hits" ]; then
-  (cd $V && VERIF_ONLY="$hits" python3 check.py $pid --tier $tier > $out/check_$pid.txt 2>$out/check_$pid.err; echo "exit=$? (tier $tier, restricted to the harnesses the native sweep flagged: $hits)" >> $out/check_$pid.txt)
-  if ! grep -q "^VIOLATION" $out/check_$pid.txt && [ "$tier" = quick ]; then
-    # the flagged harnesses may belong to the thorough tier only (larger bounds, slow ones)
-    (cd $V && VERIF_ONLY="$hits" python3 check.py $pid --tier thorough > $out/check_${pid}_thorough.txt 2>$out/check_${pid}_thorough.err; echo "exit=$? (tier thorough, restricted to the harnesses the native sweep flagged: $hits)" >> $out/check_${pid}_thorough.txt)
-    if grep -q "^VIOLATION" $out/check_${pid}_thorough.txt; then cp $out/check_${pid}_thorough.txt $out/check_$pid.txt; fi
-  fi
-fi
-if [ -z "$hits" ] || { ! grep -q "^VIOLATION" $out/check_$pid.txt && grep -q "no obligation was generated" $out/check_$pid.txt; }; then
-  (cd $V && python3 check.py $pid --tier $tier > $out/check_$pid.txt 2>$out/check_$pid.err; echo "exit=$? (tier $tier, full check; native sweep flagged nothing the restricted runs could decide)" >> $out/check_$pid.txt)
-fi
-nif [ -n "$hits" ]; then
-  (cd $V && VERIF_ONLY="$hits" python3 check.py $pid --tier $tier > $out/check_$pid.txt 2>$out/check_$pid.err; echo "exit=$? (tier $tier, restricted to the harnesses the native sweep flagged: $hits)" >> $out/check_$pid.txt)
-  if ! grep -q "^VIOLATION" $out/check_$pid.txt && [ "$tier" = quick ]; then
-    # the flagged harnesses may belong to the thorough tier only (larger bounds, slow ones)
-    (cd $V && VERIF_ONLY="$hits" python3 check.py $pid --tier thorough > $out/check_${pid}_thorough.txt 2>$out/check_${pid}_thorough.err; echo "exit=$? (tier thorough, restricted to the harnesses the native sweep flagged: $hits)" >> $out/check_${pid}_thorough.txt)
-    if grep -q "^VIOLATION" $out/check_${pid}_thorough.txt; then cp $out/check_${pid}_thorough.txt $out/check_$pid.txt; fi
-  fi
-fi
-if [ -z "$hits" ] || { ! grep -q "^VIOLATION" $out/check_$pid.txt && grep -q "no obligation was generated" $out/check_$pid.txt; }; then
-  (cd $V && python3 check.py $pid --tier $tier > $out/check_$pid.txt 2>$out/check_$pid.err; echo "exit=$? (tier $tier, full check; native sweep flagged nothing the restricted runs could decide)" >> $out/check_$pid.txt)
-fi
-
-if [ -n "$hits" ]; then
-  (cd $V && VERIF_ONLY="$hits" python3 check.py $pid --tier $tier > $out/check_$pid.txt 2>$out/check_$pid.err; echo "exit=$? (tier $tier, restricted to the harnesses the native sweep flagged: $hits)" >> $out/check_$pid.txt)
-  if ! grep -q "^VIOLATION" $out/check_$pid.txt && [ "$tier" = quick ]; then
-    # the flagged harnesses may belong to the thorough tier only (larger bounds, slow ones)
-    (cd $V && VERIF_ONLY="$hits" python3 check.py $pid --tier thorough > $out/check_${pid}_thorough.txt 2>$out/check_${pid}_thorough.err; echo "exit=$? (tier thorough, restricted to the harnesses the native sweep flagged: $hits)" >> $out/check_${pid}_thorough.txt)
-    if grep -q "^VIOLATION" $out/check_${pid}_thorough.txt; then cp $out/check_${pid}_thorough.txt $out/check_$pid.txt; fi
-  fi
-fi
-if [ -z "$hits" ] || { ! grep -q "^VIOLATION" $out/check_$pid.txt && grep -q "no obligation was generated" $out/check_$pid.txt; }; then
-  (cd $V && python3 check.py $pid --tier $tier > $out/check_$pid.txt 2>$out/check_$pid.err; echo "exit=$? (tier $tier, full check; native sweep flagged nothing the restricted runs could decide)" >> $out/check_$pid.txt)
-fi
-eif [ -n "$hits" ]; then
-  (cd $V && VERIF_ONLY="$hits" python3 check.py $pid --tier $tier > $out/check_$pid.txt 2>$out/check_$pid.err; echo "exit=$? (tier $tier, restricted to the harnesses the native sweep flagged: $hits)" >> $out/check_$pid.txt)
-  if ! grep -q "^VIOLATION" $out/check_$pid.txt && [ "$tier" = quick ]; then
-    # the flagged harnesses may belong to the thorough tier only (larger bounds, slow ones)
-    (cd $V && VERIF_ONLY="$hits" python3 check.py $pid --tier thorough > $out/check_${pid}_thorough.txt 2>$out/check_${pid}_thorough.err; echo "exit=$? (tier thorough, restricted to the harnesses the native sweep flagged: $hits)" >> $out/check_${pid}_thorough.txt)
-    if grep -q "^VIOLATION" $out/check_${pid}_thorough.txt; then cp $out/check_${pid}_thorough.txt $out/check_$pid.txt; fi
-  fi
-fi
-if [ -z "$hits" ] || { ! grep -q "^VIOLATION" $out/check_$pid.txt && grep -q "no obligation was generated" $out/check_$pid.txt; }; then
-  (cd $V && python3 check.py $pid --tier $tier > $out/check_$pid.txt 2>$out/check_$pid.err; echo "exit=$? (tier $tier, full check; native sweep flagged nothing the restricted runs could decide)" >> $out/check_$pid.txt)
-fi
-xif [ -n "$hits" ]; then
-  (cd $V && VERIF_ONLY="$hits" python3 check.py $pid --tier $tier > $out/check_$pid.txt 2>$out/check_$pid.err; echo "exit=$? (tier $tier, restricted to the harnesses the native sweep flagged: $hits)" >> $out/check_$pid.txt)
-  if ! grep -q "^VIOLATION" $out/check_$pid.txt && [ "$tier" = quick ]; then
-    # the flagged harnesses may belong to the thorough tier only (larger bounds, slow ones)
-    (cd $V && VERIF_ONLY="$hits" python3 check.py $pid --tier thorough > $out/check_${pid}_thorough.txt 2>$out/check_${pid}_thorough.err; echo "exit=$? (tier thorough, restricted to the harnesses the native sweep flagged: $hits)" >> $out/check_${pid}_thorough.txt)
-    if grep -q "^VIOLATION" $out/check_${pid}_thorough.txt; then cp $out/check_${pid}_thorough.txt $out/check_$pid.txt; fi
-  fi
-fi
-if [ -z "$hits" ] || { ! grep -q "^VIOLATION" $out/check_$pid.txt && grep -q "no obligation was generated" $out/check_$pid.txt; }; then
-  (cd $V && python3 check.py $pid --tier $tier > $out/check_$pid.txt 2>$out/check_$pid.err; echo "exit=$? (tier $tier, full check; native sweep flagged nothing the restricted runs could decide)" >> $out/check_$pid.txt)
-fi
-pif [ -n "$hits" ]; then
-  (cd $V && VERIF_ONLY="$hits" python3 check.py $pid --tier $tier > $out/check_$pid.txt 2>$out/check_$pid.err; echo "exit=$? (tier $tier, restricted to the harnesses the native sweep flagged: $hits)" >> $out/check_$pid.txt)
-  if ! grep -q "^VIOLATION" $out/check_$pid.txt && [ "$tier" = quick ]; then
-    # the flagged harnesses may belong to the thorough tier only (larger bounds, slow ones)
-    (cd $V && VERIF_ONLY="$hits" python3 check.py $pid --tier thorough > $out/check_${pid}_thorough.txt 2>$out/check_${pid}_thorough.err; echo "exit=$? (tier thorough, restricted to the harnesses the native sweep flagged: $hits)" >> $out/check_${pid}_thorough.txt)
-    if grep -q "^VIOLATION" $out/check_${pid}_thorough.txt; then cp $out/check_${pid}_thorough.txt $out/check_$pid.txt; fi
-  fi
-fi
-if [ -z "$hits" ] || { ! grep -q "^VIOLATION" $out/check_$pid.txt && grep -q "no obligation was generated" $out/check_$pid.txt; }; then
-  (cd $V && python3 check.py $pid --tier $tier > $out/check_$pid.txt 2>$out/check_$pid.err; echo "exit=$? (tier $tier, full check; native sweep flagged nothing the restricted runs could decide)" >> $out/check_$pid.txt)
-fi
-oif [ -n "$hits" ]; then
-  (cd $V && VERIF_ONLY="$hits" python3 check.py $pid --tier $tier > $out/check_$pid.txt 2>$out/check_$pid.err; echo "exit=$? (tier $tier, restricted to the harnesses the native sweep flagged: $hits)" >> $out/check_$pid.txt)
-  if ! grep -q "^VIOLATION" $out/check_$pid.txt && [ "$tier" = quick ]; then
-    # the flagged harnesses may belong to the thorough tier only (larger bounds, slow ones)
-    (cd $V && VERIF_ONLY="$hits" python3 check.py $pid --tier thorough > $out/check_${pid}_thorough.txt 2>$out/check_${pid}_thorough.err; echo "exit=$? (tier thorough, restricted to the harnesses the native sweep flagged: $hits)" >> $out/check_${pid}_thorough.txt)
-    if grep -q "^VIOLATION" $out/check_${pid}_thorough.txt; then cp $out/check_${pid}_thorough.txt $out/check_$pid.txt; fi
-  fi
-fi
-if [ -z "$hits" ] || { ! grep -q "^VIOLATION" $out/check_$pid.txt && grep -q "no obligation was generated" $out/check_$pid.txt; }; then
-  (cd $V && python3 check.py $pid --tier $tier > $out/check_$pid.txt 2>$out/check_$pid.err; echo "exit=$? (tier $tier, full check; native sweep flagged nothing the restricted runs could decide)" >> $out/check_$pid.txt)
-fi
-rif [ -n "$hits" ]; then
-  (cd $V && VERIF_ONLY="$hits" python3 check.py $pid --tier $tier > $out/check_$pid.txt 2>$out/check_$pid.err; echo "exit=$? (tier $tier, restricted to the harnesses the native sweep flagged: $hits)" >> $out/check_$pid.txt)
-  if ! grep -q "^VIOLATION" $out/check_$pid.txt && [ "$tier" = quick ]; then
-    # the flagged harnesses may belong to the thorough tier only (larger bounds, slow ones)
-    (cd $V && VERIF_ONLY="$hits" python3 check.py $pid --tier thorough > $out/check_${pid}_thorough.txt 2>$out/check_${pid}_thorough.err; echo "exit=$? (tier thorough, restricted to the harnesses the native sweep flagged: $hits)" >> $out/check_${pid}_thorough.txt)
-    if grep -q "^VIOLATION" $out/check_${pid}_thorough.txt; then cp $out/check_${pid}_thorough.txt $out/check_$pid.txt; fi
-  fi
-fi
-if [ -z "$hits" ] || { ! grep -q "^VIOLATION" $out/check_$pid.txt && grep -q "no obligation was generated" $out/check_$pid.txt; }; then
-  (cd $V && python3 check.py $pid --tier $tier > $out/check_$pid.txt 2>$out/check_$pid.err; echo "exit=$? (tier $tier, full check; native sweep flagged nothing the restricted runs could decide)" >> $out/check_$pid.txt)
-fi
-tif [ -n "$hits" ]; then
-  (cd $V && VERIF_ONLY="$hits" python3 check.py $pid --tier $tier > $out/check_$pid.txt 2>$out/check_$pid.err; echo "exit=$? (tier $tier, restricted to the harnesses the native sweep flagged: $hits)" >> $out/check_$pid.txt)
-  if ! grep -q "^VIOLATION" $out/check_$pid.txt && [ "$tier" = quick ]; then
-    # the flagged harnesses may belong to the thorough tier only (larger bounds, slow ones)
-    (cd $V && VERIF_ONLY="$hits" python3 check.py $pid --tier thorough > $out/check_${pid}_thorough.txt 2>$out/check_${pid}_thorough.err; echo "exit=$? (tier thorough, restricted to the harnesses the native sweep flagged: $hits)" >> $out/check_${pid}_thorough.txt)
-    if grep -q "^VIOLATION" $out/check_${pid}_thorough.txt; then cp $out/check_${pid}_thorough.txt $out/check_$pid.txt; fi
-  fi
-fi
-if [ -z "$hits" ] || { ! grep -q "^VIOLATION" $out/check_$pid.txt && grep -q "no obligation was generated" $out/check_$pid.txt; }; then
-  (cd $V && python3 check.py $pid --tier $tier > $out/check_$pid.txt 2>$out/check_$pid.err; echo "exit=$? (tier $tier, full check; native sweep flagged nothing the restricted runs could decide)" >> $out/check_$pid.txt)
-fi
- if [ -n "$hits" ]; then
-  (cd $V && VERIF_ONLY="$hits" python3 check.py $pid --tier $tier > $out/check_$pid.txt 2>$out/check_$pid.err; echo "exit=$? (tier $tier, restricted to the harnesses the native sweep flagged: $hits)" >> $out/check_$pid.txt)
-  if ! grep -q "^VIOLATION" $out/check_$pid.txt && [ "$tier" = quick ]; then
-    # the flagged harnesses may belong to the thorough tier only (larger bounds, slow ones)
-    (cd $V && VERIF_ONLY="$hits" python3 check.py $pid --tier thorough > $out/check_${pid}_thorough.txt 2>$out/check_${pid}_thorough.err; echo "exit=$? (tier thorough, restricted to the harnesses the native sweep flagged: $hits)" >> $out/check_${pid}_thorough.txt)
-    if grep -q "^VIOLATION" $out/check_${pid}_thorough.txt; then cp $out/check_${pid}_thorough.txt $out/check_$pid.txt; fi
-  fi
-fi
-if [ -z "$hits" ] || { ! grep -q "^VIOLATION" $out/check_$pid.txt && grep -q "no obligation was generated" $out/check_$pid.txt; }; then
-  (cd $V && python3 check.py $pid --tier $tier > $out/check_$pid.txt 2>$out/check_$pid.err; echo "exit=$? (tier $tier, full check; native sweep flagged nothing the restricted runs could decide)" >> $out/check_$pid.txt)
-fi
-Vif [ -n "$hits" ]; then
-  (cd $V && VERIF_ONLY="$hits" python3 check.py $pid --tier $tier > $out/check_$pid.txt 2>$out/check_$pid.err; echo "exit=$? (tier $tier, restricted to the harnesses the native sweep flagged: $hits)" >> $out/check_$pid.txt)
-  if ! grep -q "^VIOLATION" $out/check_$pid.txt && [ "$tier" = quick ]; then
-    # the flagged harnesses may belong to the thorough tier only (larger bounds, slow ones)
-    (cd $V && VERIF_ONLY="$hits" python3 check.py $pid --tier thorough > $out/check_${pid}_thorough.txt 2>$out/check_${pid}_thorough.err; echo "exit=$? (tier thorough, restricted to the harnesses the native sweep flagged: $hits)" >> $out/check_${pid}_thorough.txt)
-    if grep -q "^VIOLATION" $out/check_${pid}_thorough.txt; then cp $out/check_${pid}_thorough.txt $out/check_$pid.txt; fi
-  fi
-fi
-if [ -z "$hits" ] || { ! grep -q "^VIOLATION" $out/check_$pid.txt && grep -q "no obligation was generated" $out/check_$pid.txt; }; then
-  (cd $V && python3 check.py $pid --tier $tier > $out/check_$pid.txt 2>$out/check_$pid.err; echo "exit=$? (tier $tier, full check; native sweep flagged nothing the restricted runs could decide)" >> $out/check_$pid.txt)
-fi
-Eif [ -n "$hits" ]; then
-  (cd $V && VERIF_ONLY="$hits" python3 check.py $pid --tier $tier > $out/check_$pid.txt 2>$out/check_$pid.err; echo "exit=$? (tier $tier, restricted to the harnesses the native sweep flagged: $hits)" >> $out/check_$pid.txt)
-  if ! grep -q "^VIOLATION" $out/check_$pid.txt && [ "$tier" = quick ]; then
-    # the flagged harnesses may belong to the thorough tier only (larger bounds, slow ones)
-    (cd $V && VERIF_ONLY="$hits" python3 check.py $pid --tier thorough > $out/check_${pid}_thorough.txt 2>$out/check_${pid}_thorough.err; echo "exit=$? (tier thorough, restricted to the harnesses the native sweep flagged: $hits)" >> $out/check_${pid}_thorough.txt)
-    if grep -q "^VIOLATION" $out/check_${pid}_thorough.txt; then cp $out/check_${pid}_thorough.txt $out/check_$pid.txt; fi
-  fi
-fi
-if [ -z "$hits" ] || { ! grep -q "^VIOLATION" $out/check_$pid.txt && grep -q "no obligation was generated" $out/check_$pid.txt; }; then
-  (cd $V && python3 check.py $pid --tier $tier > $out/check_$pid.txt 2>$out/check_$pid.err; echo "exit=$? (tier $tier, full check; native sweep flagged nothing the restricted runs could decide)" >> $out/check_$pid.txt)
-fi
-Rif [ -n "$hits" ]; then
-  (cd $V && VERIF_ONLY="$hits" python3 check.py $pid --tier $tier > $out/check_$pid.txt 2>$out/check_$pid.err; echo "exit=$? (tier $tier, restricted to the harnesses the native sweep flagged: $hits)" >> $out/check_$pid.txt)
-  if ! grep -q "^VIOLATION" $out/check_$pid.txt && [ "$tier" = quick ]; then
-    # the flagged harnesses may belong to the thorough tier only (larger bounds, slow ones)
-    (cd $V && VERIF_ONLY="$hits" python3 check.py $pid --tier thorough > $out/check_${pid}_thorough.txt 2>$out/check_${pid}_thorough.err; echo "exit=$? (tier thorough, restricted to the harnesses the native sweep flagged: $hits)" >> $out/check_${pid}_thorough.txt)
-    if grep -q "^VIOLATION" $out/check_${pid}_thorough.txt; then cp $out/check_${pid}_thorough.txt $out/check_$pid.txt; fi
-  fi
-fi
-if [ -z "$hits" ] || { ! grep -q "^VIOLATION" $out/check_$pid.txt && grep -q "no obligation was generated" $out/check_$pid.txt; }; then
-  (cd $V && python3 check.py $pid --tier $tier > $out/check_$pid.txt 2>$out/check_$pid.err; echo "exit=$? (tier $tier, full check; native sweep flagged nothing the restricted runs could decide)" >> $out/check_$pid.txt)
-fi
-Iif [ -n "$hits" ]; then
-  (cd $V && VERIF_ONLY="$hits" python3 check.py $pid --tier $tier > $out/check_$pid.txt 2>$out/check_$pid.err; echo "exit=$? (tier $tier, restricted to the harnesses the native sweep flagged: $hits)" >> $out/check_$pid.txt)
-  if ! grep -q "^VIOLATION" $out/check_$pid.txt && [ "$tier" = quick ]; then
-    # the flagged harnesses may belong to the thorough tier only (larger bounds, slow ones)
-    (cd $V && VERIF_ONLY="$hits" python3 check.py $pid --tier thorough > $out/check_${pid}_thorough.txt 2>$out/check_${pid}_thorough.err; echo "exit=$? (tier thorough, restricted to the harnesses the native sweep flagged: $hits)" >> $out/check_${pid}_thorough.txt)
-    if grep -q "^VIOLATION" $out/check_${pid}_thorough.txt; then cp $out/check_${pid}_thorough.txt $out/check_$pid.txt; fi
-  fi
-fi
-if [ -z "$hits" ] || { ! grep -q "^VIOLATION" $out/check_$pid.txt && grep -q "no obligation was generated" $out/check_$pid.txt; }; then
-  (cd $V && python3 check.py $pid --tier $tier > $out/check_$pid.txt 2>$out/check_$pid.err; echo "exit=$? (tier $tier, full check; native sweep flagged nothing the restricted runs could decide)" >> $out/check_$pid.txt)
-fi
-Fif [ -n "$hits" ]; then
-  (cd $V && VERIF_ONLY="$hits" python3 check.py $pid --tier $tier > $out/check_$pid.txt 2>$out/check_$pid.err; echo "exit=$? (tier $tier, restricted to the harnesses the native sweep flagged: $hits)" >> $out/check_$pid.txt)
-  if ! grep -q "^VIOLATION" $out/check_$pid.txt && [ "$tier" = quick ]; then
-    # the flagged harnesses may belong to the thorough tier only (larger bounds, slow ones)
-    (cd $V && VERIF_ONLY="$hits" python3 check.py $pid --tier thorough > $out/check_${pid}_thorough.txt 2>$out/check_${pid}_thorough.err; echo "exit=$? (tier thorough, restricted to the harnesses the native sweep flagged: $hits)" >> $out/check_${pid}_thorough.txt)
-    if grep -q "^VIOLATION" $out/check_${pid}_thorough.txt; then cp $out/check_${pid}_thorough.txt $out/check_$pid.txt; fi
-  fi
-fi
-if [ -z "$hits" ] || { ! grep -q "^VIOLATION" $out/check_$pid.txt && grep -q "no obligation was generated" $out/check_$pid.txt; }; then
-  (cd $V && python3 check.py $pid --tier $tier > $out/check_$pid.txt 2>$out/check_$pid.err; echo "exit=$? (tier $tier, full check; native sweep flagged nothing the restricted runs could decide)" >> $out/check_$pid.txt)
-fi
-_if [ -n "$hits" ]; then
-  (cd $V && VERIF_ONLY="$hits" python3 check.py $pid --tier $tier > $out/check_$pid.txt 2>$out/check_$pid.err; echo "exit=$? (tier $tier, restricted to the harnesses the native sweep flagged: $hits)" >> $out/check_$pid.txt)
-  if ! grep -q "^VIOLATION" $out/check_$pid.txt && [ "$tier" = quick ]; then
-    # the flagged harnesses may belong to the thorough tier only (larger bounds, slow ones)
-    (cd $V && VERIF_ONLY="$hits" python3 check.py $pid --tier thorough > $out/check_${pid}_thorough.txt 2>$out/check_${pid}_thorough.err; echo "exit=$? (tier thorough, restricted to the harnesses the native sweep flagged: $hits)" >> $out/check_${pid}_thorough.txt)
-    if grep -q "^VIOLATION" $out/check_${pid}_thorough.txt; then cp $out/check_${pid}_thorough.txt $out/check_$pid.txt; fi
-  fi
-fi
-if [ -z "$hits" ] || { ! grep -q "^VIOLATION" $out/check_$pid.txt && grep -q "no obligation was generated" $out/check_$pid.txt; }; then
-  (cd $V && python3 check.py $pid --tier $tier > $out/check_$pid.txt 2>$out/check_$pid.err; echo "exit=$? (tier $tier, full check; native sweep flagged nothing the restricted runs could decide)" >> $out/check_$pid.txt)
-fi
-Rif [ -n "$hits" ]; then
-  (cd $V && VERIF_ONLY="$hits" python3 check.py $pid --tier $tier > $out/check_$pid.txt 2>$out/check_$pid.err; echo "exit=$? (tier $tier, restricted to the harnesses the native sweep flagged: $hits)" >> $out/check_$pid.txt)
-  if ! grep -q "^VIOLATION" $out/check_$pid.txt && [ "$tier" = quick ]; then
-    # the flagged harnesses may belong to the thorough tier only (larger bounds, slow ones)
-    (cd $V && VERIF_ONLY="$hits" python3 check.py $pid --tier thorough > $out/check_${pid}_thorough.txt 2>$out/check_${pid}_thorough.err; echo "exit=$? (tier thorough, restricted to the harnesses the native sweep flagged: $hits)" >> $out/check_${pid}_thorough.txt)
-    if grep -q "^VIOLATION" $out/check_${pid}_thorough.txt; then cp $out/check_${pid}_thorough.txt $out/check_$pid.txt; fi
-  fi
-fi
-if [ -z "$hits" ] || { ! grep -q "^VIOLATION" $out/check_$pid.txt && grep -q "no obligation was generated" $out/check_$pid.txt; }; then
-  (cd $V && python3 check.py $pid --tier $tier > $out/check_$pid.txt 2>$out/check_$pid.err; echo "exit=$? (tier $tier, full check; native sweep flagged nothing the restricted runs could decide)" >> $out/check_$pid.txt)
-fi
-Eif [ -n "$hits" ]; then
-  (cd $V && VERIF_ONLY="$hits" python3 check.py $pid --tier $tier > $out/check_$pid.txt 2>$out/check_$pid.err; echo "exit=$? (tier $tier, restricted to the harnesses the native sweep flagged: $hits)" >> $out/check_$pid.txt)
-  if ! grep -q "^VIOLATION" $out/check_$pid.txt && [ "$tier" = quick ]; then
-    # the flagged harnesses may belong to the thorough tier only (larger bounds, slow ones)
-    (cd $V && VERIF_ONLY="$hits" python3 check.py $pid --tier thorough > $out/check_${pid}_thorough.txt 2>$out/check_${pid}_thorough.err; echo "exit=$? (tier thorough, restricted to the harnesses the native sweep flagged: $hits)" >> $out/check_${pid}_thorough.txt)
-    if grep -q "^VIOLATION" $out/check_${pid}_thorough.txt; then cp $out/check_${pid}_thorough.txt $out/check_$pid.txt; fi
-  fi
-fi
-if [ -z "$hits" ] || { ! grep -q "^VIOLATION" $out/check_$pid.txt && grep -q "no obligation was generated" $out/check_$pid.txt; }; then
-  (cd $V && python3 check.py $pid --tier $tier > $out/check_$pid.txt 2>$out/check_$pid.err; echo "exit=$? (tier $tier, full check; native sweep flagged nothing the restricted runs could decide)" >> $out/check_$pid.txt)
-fi
-Pif [ -n "$hits" ]; then
-  (cd $V && VERIF_ONLY="$hits" python3 check.py $pid --tier $tier > $out/check_$pid.txt 2>$out/check_$pid.err; echo "exit=$? (tier $tier, restricted to the harnesses the native sweep flagged: $hits)" >> $out/check_$pid.txt)
-  if ! grep -q "^VIOLATION" $out/check_$pid.txt && [ "$tier" = quick ]; then
-    # the flagged harnesses may belong to the thorough tier only (larger bounds, slow ones)
-    (cd $V && VERIF_ONLY="$hits" python3 check.py $pid --tier thorough > $out/check_${pid}_thorough.txt 2>$out/check_${pid}_thorough.err; echo "exit=$? (tier thorough, restricted to the harnesses the native sweep flagged: $hits)" >> $out/check_${pid}_thorough.txt)
-    if grep -q "^VIOLATION" $out/check_${pid}_thorough.txt; then cp $out/check_${pid}_thorough.txt $out/check_$pid.txt; fi
-  fi
-fi
-if [ -z "$hits" ] || { ! grep -q "^VIOLATION" $out/check_$pid.txt && grep -q "no obligation was generated" $out/check_$pid.txt; }; then
-  (cd $V && python3 check.py $pid --tier $tier > $out/check_$pid.txt 2>$out/check_$pid.err; echo "exit=$? (tier $tier, full check; native sweep flagged nothing the restricted runs could decide)" >> $out/check_$pid.txt)
-fi
-Oif [ -n "$hits" ]; then
-  (cd $V && VERIF_ONLY="$hits" python3 check.py $pid --tier $tier > $out/check_$pid.txt 2>$out/check_$pid.err; echo "exit=$? (tier $tier, restricted to the harnesses the native sweep flagged: $hits)" >> $out/check_$pid.txt)
-  if ! grep -q "^VIOLATION" $out/check_$pid.txt && [ "$tier" = quick ]; then
-    # the flagged harnesses may belong to the thorough tier only (larger bounds, slow ones)
-    (cd $V && VERIF_ONLY="$hits" python3 check.py $pid --tier thorough > $out/check_${pid}_thorough.txt 2>$out/check_${pid}_thorough.err; echo "exit=$? (tier thorough, restricted to the harnesses the native sweep flagged: $hits)" >> $out/check_${pid}_thorough.txt)
-    if grep -q "^VIOLATION" $out/check_${pid}_thorough.txt; then cp $out/check_${pid}_thorough.txt $out/check_$pid.txt; fi
-  fi
-fi
-if [ -z "$hits" ] || { ! grep -q "^VIOLATION" $out/check_$pid.txt && grep -q "no obligation was generated" $out/check_$pid.txt; }; then
-  (cd $V && python3 check.py $pid --tier $tier > $out/check_$pid.txt 2>$out/check_$pid.err; echo "exit=$? (tier $tier, full check; native sweep flagged nothing the restricted runs could decide)" >> $out/check_$pid.txt)
-fi
-=if [ -n "$hits" ]; then
-  (cd $V && VERIF_ONLY="$hits" python3 check.py $pid --tier $tier > $out/check_$pid.txt 2>$out/check_$pid.err; echo "exit=$? (tier $tier, restricted to the harnesses the native sweep flagged: $hits)" >> $out/check_$pid.txt)
-  if ! grep -q "^VIOLATION" $out/check_$pid.txt && [ "$tier" = quick ]; then
-    # the flagged harnesses may belong to the thorough tier only (larger bounds, slow ones)
-    (cd $V && VERIF_ONLY="$hits" python3 check.py $pid --tier thorough > $out/check_${pid}_thorough.txt 2>$out/check_${pid}_thorough.err; echo "exit=$? (tier thorough, restricted to the harnesses the native sweep flagged: $hits)" >> $out/check_${pid}_thorough.txt)
-    if grep -q "^VIOLATION" $out/check_${pid}_thorough.txt; then cp $out/check_${pid}_thorough.txt $out/check_$pid.txt; fi
-  fi
-fi
-if [ -z "$hits" ] || { ! grep -q "^VIOLATION" $out/check_$pid.txt && grep -q "no obligation was generated" $out/check_$pid.txt; }; then
-  (cd $V && python3 check.py $pid --tier $tier > $out/check_$pid.txt 2>$out/check_$pid.err; echo "exit=$? (tier $tier, full check; native sweep flagged nothing the restricted runs could decide)" >> $out/check_$pid.txt)
-fi
-$if [ -n "$hits" ]; then
-  (cd $V && VERIF_ONLY="$hits" python3 check.py $pid --tier $tier > $out/check_$pid.txt 2>$out/check_$pid.err; echo "exit=$? (tier $tier, restricted to the harnesses the native sweep flagged: $hits)" >> $out/check_$pid.txt)
-  if ! grep -q "^VIOLATION" $out/check_$pid.txt && [ "$tier" = quick ]; then
-    # the flagged harnesses may belong to the thorough tier only (larger bounds, slow ones)
-    (cd $V && VERIF_ONLY="$hits" python3 check.py $pid --tier thorough > $out/check_${pid}_thorough.txt 2>$out/check_${pid}_thorough.err; echo "exit=$? (tier thorough, restricted to the harnesses the native sweep flagged: $hits)" >> $out/check_${pid}_thorough.txt)
-    if grep -q "^VIOLATION" $out/check_${pid}_thorough.txt; then cp $out/check_${pid}_thorough.txt $out/check_$pid.txt; fi
-  fi
-fi
-if [ -z "$hits" ] || { ! grep -q "^VIOLATION" $out/check_$pid.txt && grep -q "no obligation was generated" $out/check_$pid.txt; }; then
-  (cd $V && python3 check.py $pid --tier $tier > $out/check_$pid.txt 2>$out/check_$pid.err; echo "exit=$? (tier $tier, full check; native sweep flagged nothing the restricted runs could decide)" >> $out/check_$pid.txt)
-fi
-wif [ -n "$hits" ]; then
-  (cd $V && VERIF_ONLY="$hits" python3 check.py $pid --tier $tier > $out/check_$pid.txt 2>$out/check_$pid.err; echo "exit=$? (tier $tier, restricted to the harnesses the native sweep flagged: $hits)" >> $out/check_$pid.txt)
-  if ! grep -q "^VIOLATION" $out/check_$pid.txt && [ "$tier" = quick ]; then
-    # the flagged harnesses may belong to the thorough tier only (larger bounds, slow ones)
-    (cd $V && VERIF_ONLY="$hits" python3 check.py $pid --tier thorough > $out/check_${pid}_thorough.txt 2>$out/check_${pid}_thorough.err; echo "exit=$? (tier thorough, restricted to the harnesses the native sweep flagged: $hits)" >> $out/check_${pid}_thorough.txt)
-    if grep -q "^VIOLATION" $out/check_${pid}_thorough.txt; then cp $out/check_${pid}_thorough.txt $out/check_$pid.txt; fi
-  fi
-fi
-if [ -z "$hits" ] || { ! grep -q "^VIOLATION" $out/check_$pid.txt && grep -q "no obligation was generated" $out/check_$pid.txt; }; then
-  (cd $V && python3 check.py $pid --tier $tier > $out/check_$pid.txt 2>$out/check_$pid.err; echo "exit=$? (tier $tier, full check; native sweep flagged nothing the restricted runs could decide)" >> $out/check_$pid.txt)
-fi
-tif [ -n "$hits" ]; then
-  (cd $V && VERIF_ONLY="$hits" python3 check.py $pid --tier $tier > $out/check_$pid.txt 2>$out/check_$pid.err; echo "exit=$? (tier $tier, restricted to the harnesses the native sweep flagged: $hits)" >> $out/check_$pid.txt)
-  if ! grep -q "^VIOLATION" $out/check_$pid.txt && [ "$tier" = quick ]; then
-    # the flagged harnesses may belong to the thorough tier only (larger bounds, slow ones)
-    (cd $V && VERIF_ONLY="$hits" python3 check.py $pid --tier thorough > $out/check_${pid}_thorough.txt 2>$out/check_${pid}_thorough.err; echo "exit=$? (tier thorough, restricted to the harnesses the native sweep flagged: $hits)" >> $out/check_${pid}_thorough.txt)
-    if grep -q "^VIOLATION" $out/check_${pid}_thorough.txt; then cp $out/check_${pid}_thorough.txt $out/check_$pid.txt; fi
-  fi
-fi
-if [ -z "$hits" ] || { ! grep -q "^VIOLATION" $out/check_$pid.txt && grep -q "no obligation was generated" $out/check_$pid.txt; }; then
-  (cd $V && python3 check.py $pid --tier $tier > $out/check_$pid.txt 2>$out/check_$pid.err; echo "exit=$? (tier $tier, full check; native sweep flagged nothing the restricted runs could decide)" >> $out/check_$pid.txt)
-fi
- if [ -n "$hits" ]; then
-  (cd $V && VERIF_ONLY="$hits" python3 check.py $pid --tier $tier > $out/check_$pid.txt 2>$out/check_$pid.err; echo "exit=$? (tier $tier, restricted to the harnesses the native sweep flagged: $hits)" >> $out/check_$pid.txt)
-  if ! grep -q "^VIOLATION" $out/check_$pid.txt && [ "$tier" = quick ]; then
-    # the flagged harnesses may belong to the thorough tier only (larger bounds, slow ones)
-    (cd $V && VERIF_ONLY="$hits" python3 check.py $pid --tier thorough > $out/check_${pid}_thorough.txt 2>$out/check_${pid}_thorough.err; echo "exit=$? (tier thorough, restricted to the harnesses the native sweep flagged: $hits)" >> $out/check_${pid}_thorough.txt)
-    if grep -q "^VIOLATION" $out/check_${pid}_thorough.txt; then cp $out/check_${pid}_thorough.txt $out/check_$pid.txt; fi
-  fi
-fi
-if [ -z "$hits" ] || { ! grep -q "^VIOLATION" $out/check_$pid.txt && grep -q "no obligation was generated" $out/check_$pid.txt; }; then
-  (cd $V && python3 check.py $pid --tier $tier > $out/check_$pid.txt 2>$out/check_$pid.err; echo "exit=$? (tier $tier, full check; native sweep flagged nothing the restricted runs could decide)" >> $out/check_$pid.txt)
-fi
-Vif [ -n "$hits" ]; then
-  (cd $V && VERIF_ONLY="$hits" python3 check.py $pid --tier $tier > $out/check_$pid.txt 2>$out/check_$pid.err; echo "exit=$? (tier $tier, restricted to the harnesses the native sweep flagged: $hits)" >> $out/check_$pid.txt)
-  if ! grep -q "^VIOLATION" $out/check_$pid.txt && [ "$tier" = quick ]; then
-    # the flagged harnesses may belong to the thorough tier only (larger bounds, slow ones)
-    (cd $V && VERIF_ONLY="$hits" python3 check.py $pid --tier thorough > $out/check_${pid}_thorough.txt 2>$out/check_${pid}_thorough.err; echo "exit=$? (tier thorough, restricted to the harnesses the native sweep flagged: $hits)" >> $out/check_${pid}_thorough.txt)
-    if grep -q "^VIOLATION" $out/check_${pid}_thorough.txt; then cp $out/check_${pid}_thorough.txt $out/check_$pid.txt; fi
-  fi
-fi
-if [ -z "$hits" ] || { ! grep -q "^VIOLATION" $out/check_$pid.txt && grep -q "no obligation was generated" $out/check_$pid.txt; }; then
-  (cd $V && python3 check.py $pid --tier $tier > $out/check_$pid.txt 2>$out/check_$pid.err; echo "exit=$? (tier $tier, full check; native sweep flagged nothing the restricted runs could decide)" >> $out/check_$pid.txt)
-fi
-Eif [ -n "$hits" ]; then
-  (cd $V && VERIF_ONLY="$hits" python3 check.py $pid --tier $tier > $out/check_$pid.txt 2>$out/check_$pid.err; echo "exit=$? (tier $tier, restricted to the harnesses the native sweep flagged: $hits)" >> $out/check_$pid.txt)
-  if ! grep -q "^VIOLATION" $out/check_$pid.txt && [ "$tier" = quick ]; then
-    # the flagged harnesses may belong to the thorough tier only (larger bounds, slow ones)
-    (cd $V && VERIF_ONLY="$hits" python3 check.py $pid --tier thorough > $out/check_${pid}_thorough.txt 2>$out/check_${pid}_thorough.err; echo "exit=$? (tier thorough, restricted to the harnesses the native sweep flagged: $hits)" >> $out/check_${pid}_thorough.txt)
-    if grep -q "^VIOLATION" $out/check_${pid}_thorough.txt; then cp $out/check_${pid}_thorough.txt $out/check_$pid.txt; fi
-  fi
-fi
-if [ -z "$hits" ] || { ! grep -q "^VIOLATION" $out/check_$pid.txt && grep -q "no obligation was generated" $out/check_$pid.txt; }; then
-  (cd $V && python3 check.py $pid --tier $tier > $out/check_$pid.txt 2>$out/check_$pid.err; echo "exit=$? (tier $tier, full check; native sweep flagged nothing the restricted runs could decide)" >> $out/check_$pid.txt)
-fi
-Rif [ -n "$hits" ]; then
-  (cd $V && VERIF_ONLY="$hits" python3 check.py $pid --tier $tier > $out/check_$pid.txt 2>$out/check_$pid.err; echo "exit=$? (tier $tier, restricted to the harnesses the native sweep flagged: $hits)" >> $out/check_$pid.txt)
-  if ! grep -q "^VIOLATION" $out/check_$pid.txt && [ "$tier" = quick ]; then
-    # the flagged harnesses may belong to the thorough tier only (larger bounds, slow ones)
-    (cd $V && VERIF_ONLY="$hits" python3 check.py $pid --tier thorough > $out/check_${pid}_thorough.txt 2>$out/check_${pid}_thorough.err; echo "exit=$? (tier thorough, restricted to the harnesses the native sweep flagged: $hits)" >> $out/check_${pid}_thorough.txt)
-    if grep -q "^VIOLATION" $out/check_${pid}_thorough.txt; then cp $out/check_${pid}_thorough.txt $out/check_$pid.txt; fi
-  fi
-fi
-if [ -z "$hits" ] || { ! grep -q "^VIOLATION" $out/check_$pid.txt && grep -q "no obligation was generated" $out/check_$pid.txt; }; then
-  (cd $V && python3 check.py $pid --tier $tier > $out/check_$pid.txt 2>$out/check_$pid.err; echo "exit=$? (tier $tier, full check; native sweep flagged nothing the restricted runs could decide)" >> $out/check_$pid.txt)
-fi
-Iif [ -n "$hits" ]; then
-  (cd $V && VERIF_ONLY="$hits" python3 check.py $pid --tier $tier > $out/check_$pid.txt 2>$out/check_$pid.err; echo "exit=$? (tier $tier, restricted to the harnesses the native sweep flagged: $hits)" >> $out/check_$pid.txt)
-  if ! grep -q "^VIOLATION" $out/check_$pid.txt && [ "$tier" = quick ]; then
-    # the flagged harnesses may belong to the thorough tier only (larger bounds, slow ones)
-    (cd $V && VERIF_ONLY="$hits" python3 check.py $pid --tier thorough > $out/check_${pid}_thorough.txt 2>$out/check_${pid}_thorough.err; echo "exit=$? (tier thorough, restricted to the harnesses the native sweep flagged: $hits)" >> $out/check_${pid}_thorough.txt)
-    if grep -q "^VIOLATION" $out/check_${pid}_thorough.txt; then cp $out/check_${pid}_thorough.txt $out/check_$pid.txt; fi
-  fi
-fi
-if [ -z "$hits" ] || { ! grep -q "^VIOLATION" $out/check_$pid.txt && grep -q "no obligation was generated" $out/check_$pid.txt; }; then
-  (cd $V && python3 check.py $pid --tier $tier > $out/check_$pid.txt 2>$out/check_$pid.err; echo "exit=$? (tier $tier, full check; native sweep flagged nothing the restricted runs could decide)" >> $out/check_$pid.txt)
-fi
-Fif [ -n "$hits" ]; then
-  (cd $V && VERIF_ONLY="$hits" python3 check.py $pid --tier $tier > $out/check_$pid.txt 2>$out/check_$pid.err; echo "exit=$? (tier $tier, restricted to the harnesses the native sweep flagged: $hits)" >> $out/check_$pid.txt)
-  if ! grep -q "^VIOLATION" $out/check_$pid.txt && [ "$tier" = quick ]; then
-    # the flagged harnesses may belong to the thorough tier only (larger bounds, slow ones)
-    (cd $V && VERIF_ONLY="$hits" python3 check.py $pid --tier thorough > $out/check_${pid}_thorough.txt 2>$out/check_${pid}_thorough.err; echo "exit=$? (tier thorough, restricted to the harnesses the native sweep flagged: $hits)" >> $out/check_${pid}_thorough.txt)
-    if grep -q "^VIOLATION" $out/check_${pid}_thorough.txt; then cp $out/check_${pid}_thorough.txt $out/check_$pid.txt; fi
-  fi
-fi
-if [ -z "$hits" ] || { ! grep -q "^VIOLATION" $out/check_$pid.txt && grep -q "no obligation was generated" $out/check_$pid.txt; }; then
-  (cd $V && python3 check.py $pid --tier $tier > $out/check_$pid.txt 2>$out/check_$pid.err; echo "exit=$? (tier $tier, full check; native sweep flagged nothing the restricted runs could decide)" >> $out/check_$pid.txt)
-fi
-_if [ -n "$hits" ]; then
-  (cd $V && VERIF_ONLY="$hits" python3 check.py $pid --tier $tier > $out/check_$pid.txt 2>$out/check_$pid.err; echo "exit=$? (tier $tier, restricted to the harnesses the native sweep flagged: $hits)" >> $out/check_$pid.txt)
-  if ! grep -q "^VIOLATION" $out/check_$pid.txt && [ "$tier" = quick ]; then
-    # the flagged harnesses may belong to the thorough tier only (larger bounds, slow ones)
-    (cd $V && VERIF_ONLY="$hits" python3 check.py $pid --tier thorough > $out/check_${pid}_thorough.txt 2>$out/check_${pid}_thorough.err; echo "exit=$? (tier thorough, restricted to the harnesses the native sweep flagged: $hits)" >> $out/check_${pid}_thorough.txt)
-    if grep -q "^VIOLATION" $out/check_${pid}_thorough.txt; then cp $out/check_${pid}_thorough.txt $out/check_$pid.txt; fi
-  fi
-fi
-if [ -z "$hits" ] || { ! grep -q "^VIOLATION" $out/check_$pid.txt && grep -q "no obligation was generated" $out/check_$pid.txt; }; then
-  (cd $V && python3 check.py $pid --tier $tier > $out/check_$pid.txt 2>$out/check_$pid.err; echo "exit=$? (tier $tier, full check; native sweep flagged nothing the restricted runs could decide)" >> $out/check_$pid.txt)
-fi
-Wif [ -n "$hits" ]; then
-  (cd $V && VERIF_ONLY="$hits" python3 check.py $pid --tier $tier > $out/check_$pid.txt 2>$out/check_$pid.err; echo "exit=$? (tier $tier, restricted to the harnesses the native sweep flagged: $hits)" >> $out/check_$pid.txt)
-  if ! grep -q "^VIOLATION" $out/check_$pid.txt && [ "$tier" = quick ]; then
-    # the flagged harnesses may belong to the thorough tier only (larger bounds, slow ones)
-    (cd $V && VERIF_ONLY="$hits" python3 check.py $pid --tier thorough > $out/check_${pid}_thorough.txt 2>$out/check_${pid}_thorough.err; echo "exit=$? (tier thorough, restricted to the harnesses the native sweep flagged: $hits)" >> $out/check_${pid}_thorough.txt)
-    if grep -q "^VIOLATION" $out/check_${pid}_thorough.txt; then cp $out/check_${pid}_thorough.txt $out/check_$pid.txt; fi
-  fi
-fi
-if [ -z "$hits" ] || { ! grep -q "^VIOLATION" $out/check_$pid.txt && grep -q "no obligation was generated" $out/check_$pid.txt; }; then
-  (cd $V && python3 check.py $pid --tier $tier > $out/check_$pid.txt 2>$out/check_$pid.err; echo "exit=$? (tier $tier, full check; native sweep flagged nothing the restricted runs could decide)" >> $out/check_$pid.txt)
-fi
-Oif [ -n "$hits" ]; then
-  (cd $V && VERIF_ONLY="$hits" python3 check.py $pid --tier $tier > $out/check_$pid.txt 2>$out/check_$pid.err; echo "exit=$? (tier $tier, restricted to the harnesses the native sweep flagged: $hits)" >> $out/check_$pid.txt)
-  if ! grep -q "^VIOLATION" $out/check_$pid.txt && [ "$tier" = quick ]; then
-    # the flagged harnesses may belong to the thorough tier only (larger bounds, slow ones)
-    (cd $V && VERIF_ONLY="$hits" python3 check.py $pid --tier thorough > $out/check_${pid}_thorough.txt 2>$out/check_${pid}_thorough.err; echo "exit=$? (tier thorough, restricted to the harnesses the native sweep flagged: $hits)" >> $out/check_${pid}_thorough.txt)
-    if grep -q "^VIOLATION" $out/check_${pid}_thorough.txt; then cp $out/check_${pid}_thorough.txt $out/check_$pid.txt; fi
-  fi
-fi
-if [ -z "$hits" ] || { ! grep -q "^VIOLATION" $out/check_$pid.txt && grep -q "no obligation was generated" $out/check_$pid.txt; }; then
-  (cd $V && python3 check.py $pid --tier $tier > $out/check_$pid.txt 2>$out/check_$pid.err; echo "exit=$? (tier $tier, full check; native sweep flagged nothing the restricted runs could decide)" >> $out/check_$pid.txt)
-fi
-Rif [ -n "$hits" ]; then
-  (cd $V && VERIF_ONLY="$hits" python3 check.py $pid --tier $tier > $out/check_$pid.txt 2>$out/check_$pid.err; echo "exit=$? (tier $tier, restricted to the harnesses the native sweep flagged: $hits)" >> $out/check_$pid.txt)
-  if ! grep -q "^VIOLATION" $out/check_$pid.txt && [ "$tier" = quick ]; then
-    # the flagged harnesses may belong to the thorough tier only (larger bounds, slow ones)
-    (cd $V && VERIF_ONLY="$hits" python3 check.py $pid --tier thorough > $out/check_${pid}_thorough.txt 2>$out/check_${pid}_thorough.err; echo "exit=$? (tier thorough, restricted to the harnesses the native sweep flagged: $hits)" >> $out/check_${pid}_thorough.txt)
-    if grep -q "^VIOLATION" $out/check_${pid}_thorough.txt; then cp $out/check_${pid}_thorough.txt $out/check_$pid.txt; fi
-  fi
-fi
-if [ -z "$hits" ] || { ! grep -q "^VIOLATION" $out/check_$pid.txt && grep -q "no obligation was generated" $out/check_$pid.txt; }; then
-  (cd $V && python3 check.py $pid --tier $tier > $out/check_$pid.txt 2>$out/check_$pid.err; echo "exit=$? (tier $tier, full check; native sweep flagged nothing the restricted runs could decide)" >> $out/check_$pid.txt)
-fi
-Kif [ -n "$hits" ]; then
-  (cd $V && VERIF_ONLY="$hits" python3 check.py $pid --tier $tier > $out/check_$pid.txt 2>$out/check_$pid.err; echo "exit=$? (tier $tier, restricted to the harnesses the native sweep flagged: $hits)" >> $out/check_$pid.txt)
-  if ! grep -q "^VIOLATION" $out/check_$pid.txt && [ "$tier" = quick ]; then
-    # the flagged harnesses may belong to the thorough tier only (larger bounds, slow ones)
-    (cd $V && VERIF_ONLY="$hits" python3 check.py $pid --tier thorough > $out/check_${pid}_thorough.txt 2>$out/check_${pid}_thorough.err; echo "exit=$? (tier thorough, restricted to the harnesses the native sweep flagged: $hits)" >> $out/check_${pid}_thorough.txt)
-    if grep -q "^VIOLATION" $out/check_${pid}_thorough.txt; then cp $out/check_${pid}_thorough.txt $out/check_$pid.txt; fi
-  fi
-fi
-if [ -z "$hits" ] || { ! grep -q "^VIOLATION" $out/check_$pid.txt && grep -q "no obligation was generated" $out/check_$pid.txt; }; then
-  (cd $V && python3 check.py $pid --tier $tier > $out/check_$pid.txt 2>$out/check_$pid.err; echo "exit=$? (tier $tier, full check; native sweep flagged nothing the restricted runs could decide)" >> $out/check_$pid.txt)
-fi
-=if [ -n "$hits" ]; then
-  (cd $V && VERIF_ONLY="$hits" python3 check.py $pid --tier $tier > $out/check_$pid.txt 2>$out/check_$pid.err; echo "exit=$? (tier $tier, restricted to the harnesses the native sweep flagged: $hits)" >> $out/check_$pid.txt)
-  if ! grep -q "^VIOLATION" $out/check_$pid.txt && [ "$tier" = quick ]; then
-    # the flagged harnesses may belong to the thorough tier only (larger bounds, slow ones)
-    (cd $V && VERIF_ONLY="$hits" python3 check.py $pid --tier thorough > $out/check_${pid}_thorough.txt 2>$out/check_${pid}_thorough.err; echo "exit=$? (tier thorough, restricted to the harnesses the native sweep flagged: $hits)" >> $out/check_${pid}_thorough.txt)
-    if grep -q "^VIOLATION" $out/check_${pid}_thorough.txt; then cp $out/check_${pid}_thorough.txt $out/check_$pid.txt; fi
-  fi
-fi
-if [ -z "$hits" ] || { ! grep -q "^VIOLATION" $out/check_$pid.txt && grep -q "no obligation was generated" $out/check_$pid.txt; }; then
-  (cd $V && python3 check.py $pid --tier $tier > $out/check_$pid.txt 2>$out/check_$pid.err; echo "exit=$? (tier $tier, full check; native sweep flagged nothing the restricted runs could decide)" >> $out/check_$pid.txt)
-fi
-/if [ -n "$hits" ]; then
-  (cd $V && VERIF_ONLY="$hits" python3 check.py $pid --tier $tier > $out/check_$pid.txt 2>$out/check_$pid.err; echo "exit=$? (tier $tier, restricted to the harnesses the native sweep flagged: $hits)" >> $out/check_$pid.txt)
-  if ! grep -q "^VIOLATION" $out/check_$pid.txt && [ "$tier" = quick ]; then
-    # the flagged harnesses may belong to the thorough tier only (larger bounds, slow ones)
-    (cd $V && VERIF_ONLY="$hits" python3 check.py $pid --tier thorough > $out/check_${pid}_thorough.txt 2>$out/check_${pid}_thorough.err; echo "exit=$? (tier thorough, restricted to the harnesses the native sweep flagged: $hits)" >> $out/check_${pid}_thorough.txt)
-    if grep -q "^VIOLATION" $out/check_${pid}_thorough.txt; then cp $out/check_${pid}_thorough.txt $out/check_$pid.txt; fi
-  fi
-fi
-if [ -z "$hits" ] || { ! grep -q "^VIOLATION" $out/check_$pid.txt && grep -q "no obligation was generated" $out/check_$pid.txt; }; then
-  (cd $V && python3 check.py $pid --tier $tier > $out/check_$pid.txt 2>$out/check_$pid.err; echo "exit=$? (tier $tier, full check; native sweep flagged nothing the restricted runs could decide)" >> $out/check_$pid.txt)
-fi
-tif [ -n "$hits" ]; then
-  (cd $V && VERIF_ONLY="$hits" python3 check.py $pid --tier $tier > $out/check_$pid.txt 2>$out/check_$pid.err; echo "exit=$? (tier $tier, restricted to the harnesses the native sweep flagged: $hits)" >> $out/check_$pid.txt)
-  if ! grep -q "^VIOLATION" $out/check_$pid.txt && [ "$tier" = quick ]; then
-    # the flagged harnesses may belong to the thorough tier only (larger bounds, slow ones)
-    (cd $V && VERIF_ONLY="$hits" python3 check.py $pid --tier thorough > $out/check_${pid}_thorough.txt 2>$out/check_${pid}_thorough.err; echo "exit=$? (tier thorough, restricted to the harnesses the native sweep flagged: $hits)" >> $out/check_${pid}_thorough.txt)
-    if grep -q "^VIOLATION" $out/check_${pid}_thorough.txt; then cp $out/check_${pid}_thorough.txt $out/check_$pid.txt; fi
-  fi
-fi
-if [ -z "$hits" ] || { ! grep -q "^VIOLATION" $out/check_$pid.txt && grep -q "no obligation was generated" $out/check_$pid.txt; }; then
-  (cd $V && python3 check.py $pid --tier $tier > $out/check_$pid.txt 2>$out/check_$pid.err; echo "exit=$? (tier $tier, full check; native sweep flagged nothing the restricted runs could decide)" >> $out/check_$pid.txt)
-fi
-mif [ -n "$hits" ]; then
-  (cd $V && VERIF_ONLY="$hits" python3 check.py $pid --tier $tier > $out/check_$pid.txt 2>$out/check_$pid.err; echo "exit=$? (tier $tier, restricted to the harnesses the native sweep flagged: $hits)" >> $out/check_$pid.txt)
-  if ! grep -q "^VIOLATION" $out/check_$pid.txt && [ "$tier" = quick ]; then
-    # the flagged harnesses may belong to the thorough tier only (larger bounds, slow ones)
-    (cd $V && VERIF_ONLY="$hits" python3 check.py $pid --tier thorough > $out/check_${pid}_thorough.txt 2>$out/check_${pid}_thorough.err; echo "exit=$? (tier thorough, restricted to the harnesses the native sweep flagged: $hits)" >> $out/check_${pid}_thorough.txt)
-    if grep -q "^VIOLATION" $out/check_${pid}_thorough.txt; then cp $out/check_${pid}_thorough.txt $out/check_$pid.txt; fi
-  fi
-fi
-if [ -z "$hits" ] || { ! grep -q "^VIOLATION" $out/check_$pid.txt && grep -q "no obligation was generated" $out/check_$pid.txt; }; then
-  (cd $V && python3 check.py $pid --tier $tier > $out/check_$pid.txt 2>$out/check_$pid.err; echo "exit=$? (tier $tier, full check; native sweep flagged nothing the restricted runs could decide)" >> $out/check_$pid.txt)
-fi
-pif [ -n "$hits" ]; then
-  (cd $V && VERIF_ONLY="$hits" python3 check.py $pid --tier $tier > $out/check_$pid.txt 2>$out/check_$pid.err; echo "exit=$? (tier $tier, restricted to the harnesses the native sweep flagged: $hits)" >> $out/check_$pid.txt)
-  if ! grep -q "^VIOLATION" $out/check_$pid.txt && [ "$tier" = quick ]; then
-    # the flagged harnesses may belong to the thorough tier only (larger bounds, slow ones)
-    (cd $V && VERIF_ONLY="$hits" python3 check.py $pid --tier thorough > $out/check_${pid}_thorough.txt 2>$out/check_${pid}_thorough.err; echo "exit=$? (tier thorough, restricted to the harnesses the native sweep flagged: $hits)" >> $out/check_${pid}_thorough.txt)
-    if grep -q "^VIOLATION" $out/check_${pid}_thorough.txt; then cp $out/check_${pid}_thorough.txt $out/check_$pid.txt; fi
-  fi
-fi
-if [ -z "$hits" ] || { ! grep -q "^VIOLATION" $out/check_$pid.txt && grep -q "no obligation was generated" $out/check_$pid.txt; }; then
-  (cd $V && python3 check.py $pid --tier $tier > $out/check_$pid.txt 2>$out/check_$pid.err; echo "exit=$? (tier $tier, full check; native sweep flagged nothing the restricted runs could decide)" >> $out/check_$pid.txt)
-fi
-/if [ -n "$hits" ]; then
-  (cd $V && VERIF_ONLY="$hits" python3 check.py $pid --tier $tier > $out/check_$pid.txt 2>$out/check_$pid.err; echo "exit=$? (tier $tier, restricted to the harnesses the native sweep flagged: $hits)" >> $out/check_$pid.txt)
-  if ! grep -q "^VIOLATION" $out/check_$pid.txt && [ "$tier" = quick ]; then
-    # the flagged harnesses may belong to the thorough tier only (larger bounds, slow ones)
-    (cd $V && VERIF_ONLY="$hits" python3 check.py $pid --tier thorough > $out/check_${pid}_thorough.txt 2>$out/check_${pid}_thorough.err; echo "exit=$? (tier thorough, restricted to the harnesses the native sweep flagged: $hits)" >> $out/check_${pid}_thorough.txt)
-    if grep -q "^VIOLATION" $out/check_${pid}_thorough.txt; then cp $out/check_${pid}_thorough.txt $out/check_$pid.txt; fi
-  fi
-fi
-if [ -z "$hits" ] || { ! grep -q "^VIOLATION" $out/check_$pid.txt && grep -q "no obligation was generated" $out/check_$pid.txt; }; then
-  (cd $V && python3 check.py $pid --tier $tier > $out/check_$pid.txt 2>$out/check_$pid.err; echo "exit=$? (tier $tier, full check; native sweep flagged nothing the restricted runs could decide)" >> $out/check_$pid.txt)
-fi
-sif [ -n "$hits" ]; then
-  (cd $V && VERIF_ONLY="$hits" python3 check.py $pid --tier $tier > $out/check_$pid.txt 2>$out/check_$pid.err; echo "exit=$? (tier $tier, restricted to the harnesses the native sweep flagged: $hits)" >> $out/check_$pid.txt)
-  if ! grep -q "^VIOLATION" $out/check_$pid.txt && [ "$tier" = quick ]; then
-    # the flagged harnesses may belong to the thorough tier only (larger bounds, slow ones)
-    (cd $V && VERIF_ONLY="$hits" python3 check.py $pid --tier thorough > $out/check_${pid}_thorough.txt 2>$out/check_${pid}_thorough.err; echo "exit=$? (tier thorough, restricted to the harnesses the native sweep flagged: $hits)" >> $out/check_${pid}_thorough.txt)
-    if grep -q "^VIOLATION" $out/check_${pid}_thorough.txt; then cp $out/check_${pid}_thorough.txt $out/check_$pid.txt; fi
-  fi
-fi
-if [ -z "$hits" ] || { ! grep -q "^VIOLATION" $out/check_$pid.txt && grep -q "no obligation was generated" $out/check_$pid.txt; }; then
-  (cd $V && python3 check.py $pid --tier $tier > $out/check_$pid.txt 2>$out/check_$pid.err; echo "exit=$? (tier $tier, full check; native sweep flagged nothing the restricted runs could decide)" >> $out/check_$pid.txt)
-fi
-eif [ -n "$hits" ]; then
-  (cd $V && VERIF_ONLY="$hits" python3 check.py $pid --tier $tier > $out/check_$pid.txt 2>$out/check_$pid.err; echo "exit=$? (tier $tier, restricted to the harnesses the native sweep flagged: $hits)" >> $out/check_$pid.txt)
-  if ! grep -q "^VIOLATION" $out/check_$pid.txt && [ "$tier" = quick ]; then
-    # the flagged harnesses may belong to the thorough tier only (larger bounds, slow ones)
-    (cd $V && VERIF_ONLY="$hits" python3 check.py $pid --tier thorough > $out/check_${pid}_thorough.txt 2>$out/check_${pid}_thorough.err; echo "exit=$? (tier thorough, restricted to the harnesses the native sweep flagged: $hits)" >> $out/check_${pid}_thorough.txt)
-    if grep -q "^VIOLATION" $out/check_${pid}_thorough.txt; then cp $out/check_${pid}_thorough.txt $out/check_$pid.txt; fi
-  fi
-fi
-if [ -z "$hits" ] || { ! grep -q "^VIOLATION" $out/check_$pid.txt && grep -q "no obligation was generated" $out/check_$pid.txt; }; then
-  (cd $V && python3 check.py $pid --tier $tier > $out/check_$pid.txt 2>$out/check_$pid.err; echo "exit=$? (tier $tier, full check; native sweep flagged nothing the restricted runs could decide)" >> $out/check_$pid.txt)
-fi
-eif [ -n "$hits" ]; then
-  (cd $V && VERIF_ONLY="$hits" python3 check.py $pid --tier $tier > $out/check_$pid.txt 2>$out/check_$pid.err; echo "exit=$? (tier $tier, restricted to the harnesses the native sweep flagged: $hits)" >> $out/check_$pid.txt)
-  if ! grep -q "^VIOLATION" $out/check_$pid.txt && [ "$tier" = quick ]; then
-    # the flagged harnesses may belong to the thorough tier only (larger bounds, slow ones)
-    (cd $V && VERIF_ONLY="$hits" python3 check.py $pid --tier thorough > $out/check_${pid}_thorough.txt 2>$out/check_${pid}_thorough.err; echo "exit=$? (tier thorough, restricted to the harnesses the native sweep flagged: $hits)" >> $out/check_${pid}_thorough.txt)
-    if grep -q "^VIOLATION" $out/check_${pid}_thorough.txt; then cp $out/check_${pid}_thorough.txt $out/check_$pid.txt; fi
-  fi
-fi
-if [ -z "$hits" ] || { ! grep -q "^VIOLATION" $out/check_$pid.txt && grep -q "no obligation was generated" $out/check_$pid.txt; }; then
-  (cd $V && python3 check.py $pid --tier $tier > $out/check_$pid.txt 2>$out/check_$pid.err; echo "exit=$? (tier $tier, full check; native sweep flagged nothing the restricted runs could decide)" >> $out/check_$pid.txt)
-fi
-dif [ -n "$hits" ]; then
-  (cd $V && VERIF_ONLY="$hits" python3 check.py $pid --tier $tier > $out/check_$pid.txt 2>$out/check_$pid.err; echo "exit=$? (tier $tier, restricted to the harnesses the native sweep flagged: $hits)" >> $out/check_$pid.txt)
-  if ! grep -q "^VIOLATION" $out/check_$pid.txt && [ "$tier" = quick ]; then
-    # the flagged harnesses may belong to the thorough tier only (larger bounds, slow ones)
-    (cd $V && VERIF_ONLY="$hits" python3 check.py $pid --tier thorough > $out/check_${pid}_thorough.txt 2>$out/check_${pid}_thorough.err; echo "exit=$? (tier thorough, restricted to the harnesses the native sweep flagged: $hits)" >> $out/check_${pid}_thorough.txt)
-    if grep -q "^VIOLATION" $out/check_${pid}_thorough.txt; then cp $out/check_${pid}_thorough.txt $out/check_$pid.txt; fi
-  fi
-fi
-if [ -z "$hits" ] || { ! grep -q "^VIOLATION" $out/check_$pid.txt && grep -q "no obligation was generated" $out/check_$pid.txt; }; then
-  (cd $V && python3 check.py $pid --tier $tier > $out/check_$pid.txt 2>$out/check_$pid.err; echo "exit=$? (tier $tier, full check; native sweep flagged nothing the restricted runs could decide)" >> $out/check_$pid.txt)
-fi
-rif [ -n "$hits" ]; then
-  (cd $V && VERIF_ONLY="$hits" python3 check.py $pid --tier $tier > $out/check_$pid.txt 2>$out/check_$pid.err; echo "exit=$? (tier $tier, restricted to the harnesses the native sweep flagged: $hits)" >> $out/check_$pid.txt)
-  if ! grep -q "^VIOLATION" $out/check_$pid.txt && [ "$tier" = quick ]; then
-    # the flagged harnesses may belong to the thorough tier only (larger bounds, slow ones)
-    (cd $V && VERIF_ONLY="$hits" python3 check.py $pid --tier thorough > $out/check_${pid}_thorough.txt 2>$out/check_${pid}_thorough.err; echo "exit=$? (tier thorough, restricted to the harnesses the native sweep flagged: $hits)" >> $out/check_${pid}_thorough.txt)
-    if grep -q "^VIOLATION" $out/check_${pid}_thorough.txt; then cp $out/check_${pid}_thorough.txt $out/check_$pid.txt; fi
-  fi
-fi
-if [ -z "$hits" ] || { ! grep -q "^VIOLATION" $out/check_$pid.txt && grep -q "no obligation was generated" $out/check_$pid.txt; }; then
-  (cd $V && python3 check.py $pid --tier $tier > $out/check_$pid.txt 2>$out/check_$pid.err; echo "exit=$? (tier $tier, full check; native sweep flagged nothing the restricted runs could decide)" >> $out/check_$pid.txt)
-fi
-uif [ -n "$hits" ]; then
-  (cd $V && VERIF_ONLY="$hits" python3 check.py $pid --tier $tier > $out/check_$pid.txt 2>$out/check_$pid.err; echo "exit=$? (tier $tier, restricted to the harnesses the native sweep flagged: $hits)" >> $out/check_$pid.txt)
-  if ! grep -q "^VIOLATION" $out/check_$pid.txt && [ "$tier" = quick ]; then
-    # the flagged harnesses may belong to the thorough tier only (larger bounds, slow ones)
-    (cd $V && VERIF_ONLY="$hits" python3 check.py $pid --tier thorough > $out/check_${pid}_thorough.txt 2>$out/check_${pid}_thorough.err; echo "exit=$? (tier thorough, restricted to the harnesses the native sweep flagged: $hits)" >> $out/check_${pid}_thorough.txt)
-    if grep -q "^VIOLATION" $out/check_${pid}_thorough.txt; then cp $out/check_${pid}_thorough.txt $out/check_$pid.txt; fi
-  fi
-fi
-if [ -z "$hits" ] || { ! grep -q "^VIOLATION" $out/check_$pid.txt && grep -q "no obligation was generated" $out/check_$pid.txt; }; then
-  (cd $V && python3 check.py $pid --tier $tier > $out/check_$pid.txt 2>$out/check_$pid.err; echo "exit=$? (tier $tier, full check; native sweep flagged nothing the restricted runs could decide)" >> $out/check_$pid.txt)
-fi
-nif [ -n "$hits" ]; then
-  (cd $V && VERIF_ONLY="$hits" python3 check.py $pid --tier $tier > $out/check_$pid.txt 2>$out/check_$pid.err; echo "exit=$? (tier $tier, restricted to the harnesses the native sweep flagged: $hits)" >> $out/check_$pid.txt)
-  if ! grep -q "^VIOLATION" $out/check_$pid.txt && [ "$tier" = quick ]; then
-    # the flagged harnesses may belong to the thorough tier only (larger bounds, slow ones)
-    (cd $V && VERIF_ONLY="$hits" python3 check.py $pid --tier thorough > $out/check_${pid}_thorough.txt 2>$out/check_${pid}_thorough.err; echo "exit=$? (tier thorough, restricted to the harnesses the native sweep flagged: $hits)" >> $out/check_${pid}_thorough.txt)
-    if grep -q "^VIOLATION" $out/check_${pid}_thorough.txt; then cp $out/check_${pid}_thorough.txt $out/check_$pid.txt; fi
-  fi
-fi
-if [ -z "$hits" ] || { ! grep -q "^VIOLATION" $out/check_$pid.txt && grep -q "no obligation was generated" $out/check_$pid.txt; }; then
-  (cd $V && python3 check.py $pid --tier $tier > $out/check_$pid.txt 2>$out/check_$pid.err; echo "exit=$? (tier $tier, full check; native sweep flagged nothing the restricted runs could decide)" >> $out/check_$pid.txt)
-fi
-/if [ -n "$hits" ]; then
-  (cd $V && VERIF_ONLY="$hits" python3 check.py $pid --tier $tier > $out/check_$pid.txt 2>$out/check_$pid.err; echo "exit=$? (tier $tier, restricted to the harnesses the native sweep flagged: $hits)" >> $out/check_$pid.txt)
-  if ! grep -q "^VIOLATION" $out/check_$pid.txt && [ "$tier" = quick ]; then
-    # the flagged harnesses may belong to the thorough tier only (larger bounds, slow ones)
-    (cd $V && VERIF_ONLY="$hits" python3 check.py $pid --tier thorough > $out/check_${pid}_thorough.txt 2>$out/check_${pid}_thorough.err; echo "exit=$? (tier thorough, restricted to the harnesses the native sweep flagged: $hits)" >> $out/check_${pid}_thorough.txt)
-    if grep -q "^VIOLATION" $out/check_${pid}_thorough.txt; then cp $out/check_${pid}_thorough.txt $out/check_$pid.txt; fi
-  fi
-fi
-if [ -z "$hits" ] || { ! grep -q "^VIOLATION" $out/check_$pid.txt && grep -q "no obligation was generated" $out/check_$pid.txt; }; then
-  (cd $V && python3 check.py $pid --tier $tier > $out/check_$pid.txt 2>$out/check_$pid.err; echo "exit=$? (tier $tier, full check; native sweep flagged nothing the restricted runs could decide)" >> $out/check_$pid.txt)
-fi
-wif [ -n "$hits" ]; then
-  (cd $V && VERIF_ONLY="$hits" python3 check.py $pid --tier $tier > $out/check_$pid.txt 2>$out/check_$pid.err; echo "exit=$? (tier $tier, restricted to the harnesses the native sweep flagged: $hits)" >> $out/check_$pid.txt)
-  if ! grep -q "^VIOLATION" $out/check_$pid.txt && [ "$tier" = quick ]; then
-    # the flagged harnesses may belong to the thorough tier only (larger bounds, slow ones)
-    (cd $V && VERIF_ONLY="$hits" python3 check.py $pid --tier thorough > $out/check_${pid}_thorough.txt 2>$out/check_${pid}_thorough.err; echo "exit=$? (tier thorough, restricted to the harnesses the native sweep flagged: $hits)" >> $out/check_${pid}_thorough.txt)
-    if grep -q "^VIOLATION" $out/check_${pid}_thorough.txt; then cp $out/check_${pid}_thorough.txt $out/check_$pid.txt; fi
-  fi
-fi
-if [ -z "$hits" ] || { ! grep -q "^VIOLATION" $out/check_$pid.txt && grep -q "no obligation was generated" $out/check_$pid.txt; }; then
-  (cd $V && python3 check.py $pid --tier $tier > $out/check_$pid.txt 2>$out/check_$pid.err; echo "exit=$? (tier $tier, full check; native sweep flagged nothing the restricted runs could decide)" >> $out/check_$pid.txt)
-fi
-oif [ -n "$hits" ]; then
-  (cd $V && VERIF_ONLY="$hits" python3 check.py $pid --tier $tier > $out/check_$pid.txt 2>$out/check_$pid.err; echo "exit=$? (tier $tier, restricted to the harnesses the native sweep flagged: $hits)" >> $out/check_$pid.txt)
-  if ! grep -q "^VIOLATION" $out/check_$pid.txt && [ "$tier" = quick ]; then
-    # the flagged harnesses may belong to the thorough tier only (larger bounds, slow ones)
-    (cd $V && VERIF_ONLY="$hits" python3 check.py $pid --tier thorough > $out/check_${pid}_thorough.txt 2>$out/check_${pid}_thorough.err; echo "exit=$? (tier thorough, restricted to the harnesses the native sweep flagged: $hits)" >> $out/check_${pid}_thorough.txt)
-    if grep -q "^VIOLATION" $out/check_${pid}_thorough.txt; then cp $out/check_${pid}_thorough.txt $out/check_$pid.txt; fi
-  fi
-fi
-if [ -z "$hits" ] || { ! grep -q "^VIOLATION" $out/check_$pid.txt && grep -q "no obligation was generated" $out/check_$pid.txt; }; then
-  (cd $V && python3 check.py $pid --tier $tier > $out/check_$pid.txt 2>$out/check_$pid.err; echo "exit=$? (tier $tier, full check; native sweep flagged nothing the restricted runs could decide)" >> $out/check_$pid.txt)
-fi
-rif [ -n "$hits" ]; then
-  (cd $V && VERIF_ONLY="$hits" python3 check.py $pid --tier $tier > $out/check_$pid.txt 2>$out/check_$pid.err; echo "exit=$? (tier $tier, restricted to the harnesses the native sweep flagged: $hits)" >> $out/check_$pid.txt)
-  if ! grep -q "^VIOLATION" $out/check_$pid.txt && [ "$tier" = quick ]; then
-    # the flagged harnesses may belong to the thorough tier only (larger bounds, slow ones)
-    (cd $V && VERIF_ONLY="$hits" python3 check.py $pid --tier thorough > $out/check_${pid}_thorough.txt 2>$out/check_${pid}_thorough.err; echo "exit=$? (tier thorough, restricted to the harnesses the native sweep flagged: $hits)" >> $out/check_${pid}_thorough.txt)
-    if grep -q "^VIOLATION" $out/check_${pid}_thorough.txt; then cp $out/check_${pid}_thorough.txt $out/check_$pid.txt; fi
-  fi
-fi
-if [ -z "$hits" ] || { ! grep -q "^VIOLATION" $out/check_$pid.txt && grep -q "no obligation was generated" $out/check_$pid.txt; }; then
-  (cd $V && python3 check.py $pid --tier $tier > $out/check_$pid.txt 2>$out/check_$pid.err; echo "exit=$? (tier $tier, full check; native sweep flagged nothing the restricted runs could decide)" >> $out/check_$pid.txt)
-fi
-kif [ -n "$hits" ]; then
-  (cd $V && VERIF_ONLY="$hits" python3 check.py $pid --tier $tier > $out/check_$pid.txt 2>$out/check_$pid.err; echo "exit=$? (tier $tier, restricted to the harnesses the native sweep flagged: $hits)" >> $out/check_$pid.txt)
-  if ! grep -q "^VIOLATION" $out/check_$pid.txt && [ "$tier" = quick ]; then
-    # the flagged harnesses may belong to the thorough tier only (larger bounds, slow ones)
-    (cd $V && VERIF_ONLY="$hits" python3 check.py $pid --tier thorough > $out/check_${pid}_thorough.txt 2>$out/check_${pid}_thorough.err; echo "exit=$? (tier thorough, restricted to the harnesses the native sweep flagged: $hits)" >> $out/check_${pid}_thorough.txt)
-    if grep -q "^VIOLATION" $out/check_${pid}_thorough.txt; then cp $out/check_${pid}_thorough.txt $out/check_$pid.txt; fi
-  fi
-fi
-if [ -z "$hits" ] || { ! grep -q "^VIOLATION" $out/check_$pid.txt && grep -q "no obligation was generated" $out/check_$pid.txt; }; then
-  (cd $V && python3 check.py $pid --tier $tier > $out/check_$pid.txt 2>$out/check_$pid.err; echo "exit=$? (tier $tier, full check; native sweep flagged nothing the restricted runs could decide)" >> $out/check_$pid.txt)
-fi
-_if [ -n "$hits" ]; then
-  (cd $V && VERIF_ONLY="$hits" python3 check.py $pid --tier $tier > $out/check_$pid.txt 2>$out/check_$pid.err; echo "exit=$? (tier $tier, restricted to the harnesses the native sweep flagged: $hits)" >> $out/check_$pid.txt)
-  if ! grep -q "^VIOLATION" $out/check_$pid.txt && [ "$tier" = quick ]; then
-    # the flagged harnesses may belong to the thorough tier only (larger bounds, slow ones)
-    (cd $V && VERIF_ONLY="$hits" python3 check.py $pid --tier thorough > $out/check_${pid}_thorough.txt 2>$out/check_${pid}_thorough.err; echo "exit=$? (tier thorough, restricted to the harnesses the native sweep flagged: $hits)" >> $out/check_${pid}_thorough.txt)
-    if grep -q "^VIOLATION" $out/check_${pid}_thorough.txt; then cp $out/check_${pid}_thorough.txt $out/check_$pid.txt; fi
-  fi
-fi
-if [ -z "$hits" ] || { ! grep -q "^VIOLATION" $out/check_$pid.txt && grep -q "no obligation was generated" $out/check_$pid.txt; }; then
-  (cd $V && python3 check.py $pid --tier $tier > $out/check_$pid.txt 2>$out/check_$pid.err; echo "exit=$? (tier $tier, full check; native sweep flagged nothing the restricted runs could decide)" >> $out/check_$pid.txt)
-fi
-$if [ -n "$hits" ]; then
-  (cd $V && VERIF_ONLY="$hits" python3 check.py $pid --tier $tier > $out/check_$pid.txt 2>$out/check_$pid.err; echo "exit=$? (tier $tier, restricted to the harnesses the native sweep flagged: $hits)" >> $out/check_$pid.txt)
-  if ! grep -q "^VIOLATION" $out/check_$pid.txt && [ "$tier" = quick ]; then
-    # the flagged harnesses may belong to the thorough tier only (larger bounds, slow ones)
-    (cd $V && VERIF_ONLY="$hits" python3 check.py $pid --tier thorough > $out/check_${pid}_thorough.txt 2>$out/check_${pid}_thorough.err; echo "exit=$? (tier thorough, restricted to the harnesses the native sweep flagged: $hits)" >> $out/check_${pid}_thorough.txt)
-    if grep -q "^VIOLATION" $out/check_${pid}_thorough.txt; then cp $out/check_${pid}_thorough.txt $out/check_$pid.txt; fi
-  fi
-fi
-if [ -z "$hits" ] || { ! grep -q "^VIOLATION" $out/check_$pid.txt && grep -q "no obligation was generated" $out/check_$pid.txt; }; then
-  (cd $V && python3 check.py $pid --tier $tier > $out/check_$pid.txt 2>$out/check_$pid.err; echo "exit=$? (tier $tier, full check; native sweep flagged nothing the restricted runs could decide)" >> $out/check_$pid.txt)
-fi
-nif [ -n "$hits" ]; then
-  (cd $V && VERIF_ONLY="$hits" python3 check.py $pid --tier $tier > $out/check_$pid.txt 2>$out/check_$pid.err; echo "exit=$? (tier $tier, restricted to the harnesses the native sweep flagged: $hits)" >> $out/check_$pid.txt)
-  if ! grep -q "^VIOLATION" $out/check_$pid.txt && [ "$tier" = quick ]; then
-    # the flagged harnesses may belong to the thorough tier only (larger bounds, slow ones)
-    (cd $V && VERIF_ONLY="$hits" python3 check.py $pid --tier thorough > $out/check_${pid}_thorough.txt 2>$out/check_${pid}_thorough.err; echo "exit=$? (tier thorough, restricted to the harnesses the native sweep flagged: $hits)" >> $out/check_${pid}_thorough.txt)
-    if grep -q "^VIOLATION" $out/check_${pid}_thorough.txt; then cp $out/check_${pid}_thorough.txt $out/check_$pid.txt; fi
-  fi
-fi
-if [ -z "$hits" ] || { ! grep -q "^VIOLATION" $out/check_$pid.txt && grep -q "no obligation was generated" $out/check_$pid.txt; }; then
-  (cd $V && python3 check.py $pid --tier $tier > $out/check_$pid.txt 2>$out/check_$pid.err; echo "exit=$? (tier $tier, full check; native sweep flagged nothing the restricted runs could decide)" >> $out/check_$pid.txt)
-fi
-aif [ -n "$hits" ]; then
-  (cd $V && VERIF_ONLY="$hits" python3 check.py $pid --tier $tier > $out/check_$pid.txt 2>$out/check_$pid.err; echo "exit=$? (tier $tier, restricted to the harnesses the native sweep flagged: $hits)" >> $out/check_$pid.txt)
-  if ! grep -q "^VIOLATION" $out/check_$pid.txt && [ "$tier" = quick ]; then
-    # the flagged harnesses may belong to the thorough tier only (larger bounds, slow ones)
-    (cd $V && VERIF_ONLY="$hits" python3 check.py $pid --tier thorough > $out/check_${pid}_thorough.txt 2>$out/check_${pid}_thorough.err; echo "exit=$? (tier thorough, restricted to the harnesses the native sweep flagged: $hits)" >> $out/check_${pid}_thorough.txt)
-    if grep -q "^VIOLATION" $out/check_${pid}_thorough.txt; then cp $out/check_${pid}_thorough.txt $out/check_$pid.txt; fi
-  fi
-fi
-if [ -z "$hits" ] || { ! grep -q "^VIOLATION" $out/check_$pid.txt && grep -q "no obligation was generated" $out/check_$pid.txt; }; then
-  (cd $V && python3 check.py $pid --tier $tier > $out/check_$pid.txt 2>$out/check_$pid.err; echo "exit=$? (tier $tier, full check; native sweep flagged nothing the restricted runs could decide)" >> $out/check_$pid.txt)
-fi
-mif [ -n "$hits" ]; then
-  (cd $V && VERIF_ONLY="$hits" python3 check.py $pid --tier $tier > $out/check_$pid.txt 2>$out/check_$pid.err; echo "exit=$? (tier $tier, restricted to the harnesses the native sweep flagged: $hits)" >> $out/check_$pid.txt)
-  if ! grep -q "^VIOLATION" $out/check_$pid.txt && [ "$tier" = quick ]; then
-    # the flagged harnesses may belong to the thorough tier only (larger bounds, slow ones)
-    (cd $V && VERIF_ONLY="$hits" python3 check.py $pid --tier thorough > $out/check_${pid}_thorough.txt 2>$out/check_${pid}_thorough.err; echo "exit=$? (tier thorough, restricted to the harnesses the native sweep flagged: $hits)" >> $out/check_${pid}_thorough.txt)
-    if grep -q "^VIOLATION" $out/check_${pid}_thorough.txt; then cp $out/check_${pid}_thorough.txt $out/check_$pid.txt; fi
-  fi
-fi
-if [ -z "$hits" ] || { ! grep -q "^VIOLATION" $out/check_$pid.txt && grep -q "no obligation was generated" $out/check_$pid.txt; }; then
-  (cd $V && python3 check.py $pid --tier $tier > $out/check_$pid.txt 2>$out/check_$pid.err; echo "exit=$? (tier $tier, full check; native sweep flagged nothing the restricted runs could decide)" >> $out/check_$pid.txt)
-fi
-eif [ -n "$hits" ]; then
-  (cd $V && VERIF_ONLY="$hits" python3 check.py $pid --tier $tier > $out/check_$pid.txt 2>$out/check_$pid.err; echo "exit=$? (tier $tier, restricted to the harnesses the native sweep flagged: $hits)" >> $out/check_$pid.txt)
-  if ! grep -q "^VIOLATION" $out/check_$pid.txt && [ "$tier" = quick ]; then
-    # the flagged harnesses may belong to the thorough tier only (larger bounds, slow ones)
-    (cd $V && VERIF_ONLY="$hits" python3 check.py $pid --tier thorough > $out/check_${pid}_thorough.txt 2>$out/check_${pid}_thorough.err; echo "exit=$? (tier thorough, restricted to the harnesses the native sweep flagged: $hits)" >> $out/check_${pid}_thorough.txt)
-    if grep -q "^VIOLATION" $out/check_${pid}_thorough.txt; then cp $out/check_${pid}_thorough.txt $out/check_$pid.txt; fi
-  fi
-fi
-if [ -z "$hits" ] || { ! grep -q "^VIOLATION" $out/check_$pid.txt && grep -q "no obligation was generated" $out/check_$pid.txt; }; then
-  (cd $V && python3 check.py $pid --tier $tier > $out/check_$pid.txt 2>$out/check_$pid.err; echo "exit=$? (tier $tier, full check; native sweep flagged nothing the restricted runs could decide)" >> $out/check_$pid.txt)
-fi
- if [ -n "$hits" ]; then
-  (cd $V && VERIF_ONLY="$hits" python3 check.py $pid --tier $tier > $out/check_$pid.txt 2>$out/check_$pid.err; echo "exit=$? (tier $tier, restricted to the harnesses the native sweep flagged: $hits)" >> $out/check_$pid.txt)
-  if ! grep -q "^VIOLATION" $out/check_$pid.txt && [ "$tier" = quick ]; then
-    # the flagged harnesses may belong to the thorough tier only (larger bounds, slow ones)
-    (cd $V && VERIF_ONLY="$hits" python3 check.py $pid --tier thorough > $out/check_${pid}_thorough.txt 2>$out/check_${pid}_thorough.err; echo "exit=$? (tier thorough, restricted to the harnesses the native sweep flagged: $hits)" >> $out/check_${pid}_thorough.txt)
-    if grep -q "^VIOLATION" $out/check_${pid}_thorough.txt; then cp $out/check_${pid}_thorough.txt $out/check_$pid.txt; fi
-  fi
-fi
-if [ -z "$hits" ] || { ! grep -q "^VIOLATION" $out/check_$pid.txt && grep -q "no obligation was generated" $out/check_$pid.txt; }; then
-  (cd $V && python3 check.py $pid --tier $tier > $out/check_$pid.txt 2>$out/check_$pid.err; echo "exit=$? (tier $tier, full check; native sweep flagged nothing the restricted runs could decide)" >> $out/check_$pid.txt)
-fi
-Vif [ -n "$hits" ]; then
-  (cd $V && VERIF_ONLY="$hits" python3 check.py $pid --tier $tier > $out/check_$pid.txt 2>$out/check_$pid.err; echo "exit=$? (tier $tier, restricted to the harnesses the native sweep flagged: $hits)" >> $out/check_$pid.txt)
-  if ! grep -q "^VIOLATION" $out/check_$pid.txt && [ "$tier" = quick ]; then
-    # the flagged harnesses may belong to the thorough tier only (larger bounds, slow ones)
-    (cd $V && VERIF_ONLY="$hits" python3 check.py $pid --tier thorough > $out/check_${pid}_thorough.txt 2>$out/check_${pid}_thorough.err; echo "exit=$? (tier thorough, restricted to the harnesses the native sweep flagged: $hits)" >> $out/check_${pid}_thorough.txt)
-    if grep -q "^VIOLATION" $out/check_${pid}_thorough.txt; then cp $out/check_${pid}_thorough.txt $out/check_$pid.txt; fi
-  fi
-fi
-if [ -z "$hits" ] || { ! grep -q "^VIOLATION" $out/check_$pid.txt && grep -q "no obligation was generated" $out/check_$pid.txt; }; then
-  (cd $V && python3 check.py $pid --tier $tier > $out/check_$pid.txt 2>$out/check_$pid.err; echo "exit=$? (tier $tier, full check; native sweep flagged nothing the restricted runs could decide)" >> $out/check_$pid.txt)
-fi
-Eif [ -n "$hits" ]; then
-  (cd $V && VERIF_ONLY="$hits" python3 check.py $pid --tier $tier > $out/check_$pid.txt 2>$out/check_$pid.err; echo "exit=$? (tier $tier, restricted to the harnesses the native sweep flagged: $hits)" >> $out/check_$pid.txt)
-  if ! grep -q "^VIOLATION" $out/check_$pid.txt && [ "$tier" = quick ]; then
-    # the flagged harnesses may belong to the thorough tier only (larger bounds, slow ones)
-    (cd $V && VERIF_ONLY="$hits" python3 check.py $pid --tier thorough > $out/check_${pid}_thorough.txt 2>$out/check_${pid}_thorough.err; echo "exit=$? (tier thorough, restricted to the harnesses the native sweep flagged: $hits)" >> $out/check_${pid}_thorough.txt)
-    if grep -q "^VIOLATION" $out/check_${pid}_thorough.txt; then cp $out/check_${pid}_thorough.txt $out/check_$pid.txt; fi
-  fi
-fi
-if [ -z "$hits" ] || { ! grep -q "^VIOLATION" $out/check_$pid.txt && grep -q "no obligation was generated" $out/check_$pid.txt; }; then
-  (cd $V && python3 check.py $pid --tier $tier > $out/check_$pid.txt 2>$out/check_$pid.err; echo "exit=$? (tier $tier, full check; native sweep flagged nothing the restricted runs could decide)" >> $out/check_$pid.txt)
-fi
-Rif [ -n "$hits" ]; then
-  (cd $V && VERIF_ONLY="$hits" python3 check.py $pid --tier $tier > $out/check_$pid.txt 2>$out/check_$pid.err; echo "exit=$? (tier $tier, restricted to the harnesses the native sweep flagged: $hits)" >> $out/check_$pid.txt)
-  if ! grep -q "^VIOLATION" $out/check_$pid.txt && [ "$tier" = quick ]; then
-    # the flagged harnesses may belong to the thorough tier only (larger bounds, slow ones)
-    (cd $V && VERIF_ONLY="$hits" python3 check.py $pid --tier thorough > $out/check_${pid}_thorough.txt 2>$out/check_${pid}_thorough.err; echo "exit=$? (tier thorough, restricted to the harnesses the native sweep flagged: $hits)" >> $out/check_${pid}_thorough.txt)
-    if grep -q "^VIOLATION" $out/check_${pid}_thorough.txt; then cp $out/check_${pid}_thorough.txt $out/check_$pid.txt; fi
-  fi
-fi
-if [ -z "$hits" ] || { ! grep -q "^VIOLATION" $out/check_$pid.txt && grep -q "no obligation was generated" $out/check_$pid.txt; }; then
-  (cd $V && python3 check.py $pid --tier $tier > $out/check_$pid.txt 2>$out/check_$pid.err; echo "exit=$? (tier $tier, full check; native sweep flagged nothing the restricted runs could decide)" >> $out/check_$pid.txt)
-fi
-Iif [ -n "$hits" ]; then
-  (cd $V && VERIF_ONLY="$hits" python3 check.py $pid --tier $tier > $out/check_$pid.txt 2>$out/check_$pid.err; echo "exit=$? (tier $tier, restricted to the harnesses the native sweep flagged: $hits)" >> $out/check_$pid.txt)
-  if ! grep -q "^VIOLATION" $out/check_$pid.txt && [ "$tier" = quick ]; then
-    # the flagged harnesses may belong to the thorough tier only (larger bounds, slow ones)
-    (cd $V && VERIF_ONLY="$hits" python3 check.py $pid --tier thorough > $out/check_${pid}_thorough.txt 2>$out/check_${pid}_thorough.err; echo "exit=$? (tier thorough, restricted to the harnesses the native sweep flagged: $hits)" >> $out/check_${pid}_thorough.txt)
-    if grep -q "^VIOLATION" $out/check_${pid}_thorough.txt; then cp $out/check_${pid}_thorough.txt $out/check_$pid.txt; fi
-  fi
-fi
-if [ -z "$hits" ] || { ! grep -q "^VIOLATION" $out/check_$pid.txt && grep -q "no obligation was generated" $out/check_$pid.txt; }; then
-  (cd $V && python3 check.py $pid --tier $tier > $out/check_$pid.txt 2>$out/check_$pid.err; echo "exit=$? (tier $tier, full check; native sweep flagged nothing the restricted runs could decide)" >> $out/check_$pid.txt)
-fi
-Fif [ -n "$hits" ]; then
-  (cd $V && VERIF_ONLY="$hits" python3 check.py $pid --tier $tier > $out/check_$pid.txt 2>$out/check_$pid.err; echo "exit=$? (tier $tier, restricted to the harnesses the native sweep flagged: $hits)" >> $out/check_$pid.txt)
-  if ! grep -q "^VIOLATION" $out/check_$pid.txt && [ "$tier" = quick ]; then
-    # the flagged harnesses may belong to the thorough tier only (larger bounds, slow ones)
-    (cd $V && VERIF_ONLY="$hits" python3 check.py $pid --tier thorough > $out/check_${pid}_thorough.txt 2>$out/check_${pid}_thorough.err; echo "exit=$? (tier thorough, restricted to the harnesses the native sweep flagged: $hits)" >> $out/check_${pid}_thorough.txt)
-    if grep -q "^VIOLATION" $out/check_${pid}_thorough.txt; then cp $out/check_${pid}_thorough.txt $out/check_$pid.txt; fi
-  fi
-fi
-if [ -z "$hits" ] || { ! grep -q "^VIOLATION" $out/check_$pid.txt && grep -q "no obligation was generated" $out/check_$pid.txt; }; then
-  (cd $V && python3 check.py $pid --tier $tier > $out/check_$pid.txt 2>$out/check_$pid.err; echo "exit=$? (tier $tier, full check; native sweep flagged nothing the restricted runs could decide)" >> $out/check_$pid.txt)
-fi
-_if [ -n "$hits" ]; then
-  (cd $V && VERIF_ONLY="$hits" python3 check.py $pid --tier $tier > $out/check_$pid.txt 2>$out/check_$pid.err; echo "exit=$? (tier $tier, restricted to the harnesses the native sweep flagged: $hits)" >> $out/check_$pid.txt)
-  if ! grep -q "^VIOLATION" $out/check_$pid.txt && [ "$tier" = quick ]; then
-    # the flagged harnesses may belong to the thorough tier only (larger bounds, slow ones)
-    (cd $V && VERIF_ONLY="$hits" python3 check.py $pid --tier thorough > $out/check_${pid}_thorough.txt 2>$out/check_${pid}_thorough.err; echo "exit=$? (tier thorough, restricted to the harnesses the native sweep flagged: $hits)" >> $out/check_${pid}_thorough.txt)
-    if grep -q "^VIOLATION" $out/check_${pid}_thorough.txt; then cp $out/check_${pid}_thorough.txt $out/check_$pid.txt; fi
-  fi
-fi
-if [ -z "$hits" ] || { ! grep -q "^VIOLATION" $out/check_$pid.txt && grep -q "no obligation was generated" $out/check_$pid.txt; }; then
-  (cd $V && python3 check.py $pid --tier $tier > $out/check_$pid.txt 2>$out/check_$pid.err; echo "exit=$? (tier $tier, full check; native sweep flagged nothing the restricted runs could decide)" >> $out/check_$pid.txt)
-fi
-Wif [ -n "$hits" ]; then
-  (cd $V && VERIF_ONLY="$hits" python3 check.py $pid --tier $tier > $out/check_$pid.txt 2>$out/check_$pid.err; echo "exit=$? (tier $tier, restricted to the harnesses the native sweep flagged: $hits)" >> $out/check_$pid.txt)
-  if ! grep -q "^VIOLATION" $out/check_$pid.txt && [ "$tier" = quick ]; then
-    # the flagged harnesses may belong to the thorough tier only (larger bounds, slow ones)
-    (cd $V && VERIF_ONLY="$hits" python3 check.py $pid --tier thorough > $out/check_${pid}_thorough.txt 2>$out/check_${pid}_thorough.err; echo "exit=$? (tier thorough, restricted to the harnesses the native sweep flagged: $hits)" >> $out/check_${pid}_thorough.txt)
-    if grep -q "^VIOLATION" $out/check_${pid}_thorough.txt; then cp $out/check_${pid}_thorough.txt $out/check_$pid.txt; fi
-  fi
-fi
-if [ -z "$hits" ] || { ! grep -q "^VIOLATION" $out/check_$pid.txt && grep -q "no obligation was generated" $out/check_$pid.txt; }; then
-  (cd $V && python3 check.py $pid --tier $tier > $out/check_$pid.txt 2>$out/check_$pid.err; echo "exit=$? (tier $tier, full check; native sweep flagged nothing the restricted runs could decide)" >> $out/check_$pid.txt)
-fi
-Oif [ -n "$hits" ]; then
-  (cd $V && VERIF_ONLY="$hits" python3 check.py $pid --tier $tier > $out/check_$pid.txt 2>$out/check_$pid.err; echo "exit=$? (tier $tier, restricted to the harnesses the native sweep flagged: $hits)" >> $out/check_$pid.txt)
-  if ! grep -q "^VIOLATION" $out/check_$pid.txt && [ "$tier" = quick ]; then
-    # the flagged harnesses may belong to the thorough tier only (larger bounds, slow ones)
-    (cd $V && VERIF_ONLY="$hits" python3 check.py $pid --tier thorough > $out/check_${pid}_thorough.txt 2>$out/check_${pid}_thorough.err; echo "exit=$? (tier thorough, restricted to the harnesses the native sweep flagged: $hits)" >> $out/check_${pid}_thorough.txt)
-    if grep -q "^VIOLATION" $out/check_${pid}_thorough.txt; then cp $out/check_${pid}_thorough.txt $out/check_$pid.txt; fi
-  fi
-fi
-if [ -z "$hits" ] || { ! grep -q "^VIOLATION" $out/check_$pid.txt && grep -q "no obligation was generated" $out/check_$pid.txt; }; then
-  (cd $V && python3 check.py $pid --tier $tier > $out/check_$pid.txt 2>$out/check_$pid.err; echo "exit=$? (tier $tier, full check; native sweep flagged nothing the restricted runs could decide)" >> $out/check_$pid.txt)
-fi
-Rif [ -n "$hits" ]; then
-  (cd $V && VERIF_ONLY="$hits" python3 check.py $pid --tier $tier > $out/check_$pid.txt 2>$out/check_$pid.err; echo "exit=$? (tier $tier, restricted to the harnesses the native sweep flagged: $hits)" >> $out/check_$pid.txt)
-  if ! grep -q "^VIOLATION" $out/check_$pid.txt && [ "$tier" = quick ]; then
-    # the flagged harnesses may belong to the thorough tier only (larger bounds, slow ones)
-    (cd $V && VERIF_ONLY="$hits" python3 check.py $pid --tier thorough > $out/check_${pid}_thorough.txt 2>$out/check_${pid}_thorough.err; echo "exit=$? (tier thorough, restricted to the harnesses the native sweep flagged: $hits)" >> $out/check_${pid}_thorough.txt)
-    if grep -q "^VIOLATION" $out/check_${pid}_thorough.txt; then cp $out/check_${pid}_thorough.txt $out/check_$pid.txt; fi
-  fi
-fi
-if [ -z "$hits" ] || { ! grep -q "^VIOLATION" $out/check_$pid.txt && grep -q "no obligation was generated" $out/check_$pid.txt; }; then
-  (cd $V && python3 check.py $pid --tier $tier > $out/check_$pid.txt 2>$out/check_$pid.err; echo "exit=$? (tier $tier, full check; native sweep flagged nothing the restricted runs could decide)" >> $out/check_$pid.txt)
-fi
-Kif [ -n "$hits" ]; then
-  (cd $V && VERIF_ONLY="$hits" python3 check.py $pid --tier $tier > $out/check_$pid.txt 2>$out/check_$pid.err; echo "exit=$? (tier $tier, restricted to the harnesses the native sweep flagged: $hits)" >> $out/check_$pid.txt)
-  if ! grep -q "^VIOLATION" $out/check_$pid.txt && [ "$tier" = quick ]; then
-    # the flagged harnesses may belong to the thorough tier only (larger bounds, slow ones)
-    (cd $V && VERIF_ONLY="$hits" python3 check.py $pid --tier thorough > $out/check_${pid}_thorough.txt 2>$out/check_${pid}_thorough.err; echo "exit=$? (tier thorough, restricted to the harnesses the native sweep flagged: $hits)" >> $out/check_${pid}_thorough.txt)
-    if grep -q "^VIOLATION" $out/check_${pid}_thorough.txt; then cp $out/check_${pid}_thorough.txt $out/check_$pid.txt; fi
-  fi
-fi
-if [ -z "$hits" ] || { ! grep -q "^VIOLATION" $out/check_$pid.txt && grep -q "no obligation was generated" $out/check_$pid.txt; }; then
-  (cd $V && python3 check.py $pid --tier $tier > $out/check_$pid.txt 2>$out/check_$pid.err; echo "exit=$? (tier $tier, full check; native sweep flagged nothing the restricted runs could decide)" >> $out/check_$pid.txt)
-fi
-Eif [ -n "$hits" ]; then
-  (cd $V && VERIF_ONLY="$hits" python3 check.py $pid --tier $tier > $out/check_$pid.txt 2>$out/check_$pid.err; echo "exit=$? (tier $tier, restricted to the harnesses the native sweep flagged: $hits)" >> $out/check_$pid.txt)
-  if ! grep -q "^VIOLATION" $out/check_$pid.txt && [ "$tier" = quick ]; then
-    # the flagged harnesses may belong to the thorough tier only (larger bounds, slow ones)
-    (cd $V && VERIF_ONLY="$hits" python3 check.py $pid --tier thorough > $out/check_${pid}_thorough.txt 2>$out/check_${pid}_thorough.err; echo "exit=$? (tier thorough, restricted to the harnesses the native sweep flagged: $hits)" >> $out/check_${pid}_thorough.txt)
-    if grep -q "^VIOLATION" $out/check_${pid}_thorough.txt; then cp $out/check_${pid}_thorough.txt $out/check_$pid.txt; fi
-  fi
-fi
-if [ -z "$hits" ] || { ! grep -q "^VIOLATION" $out/check_$pid.txt && grep -q "no obligation was generated" $out/check_$pid.txt; }; then
-  (cd $V && python3 check.py $pid --tier $tier > $out/check_$pid.txt 2>$out/check_$pid.err; echo "exit=$? (tier $tier, full check; native sweep flagged nothing the restricted runs could decide)" >> $out/check_$pid.txt)
-fi
-Rif [ -n "$hits" ]; then
-  (cd $V && VERIF_ONLY="$hits" python3 check.py $pid --tier $tier > $out/check_$pid.txt 2>$out/check_$pid.err; echo "exit=$? (tier $tier, restricted to the harnesses the native sweep flagged: $hits)" >> $out/check_$pid.txt)
-  if ! grep -q "^VIOLATION" $out/check_$pid.txt && [ "$tier" = quick ]; then
-    # the flagged harnesses may belong to the thorough tier only (larger bounds, slow ones)
-    (cd $V && VERIF_ONLY="$hits" python3 check.py $pid --tier thorough > $out/check_${pid}_thorough.txt 2>$out/check_${pid}_thorough.err; echo "exit=$? (tier thorough, restricted to the harnesses the native sweep flagged: $hits)" >> $out/check_${pid}_thorough.txt)
-    if grep -q "^VIOLATION" $out/check_${pid}_thorough.txt; then cp $out/check_${pid}_thorough.txt $out/check_$pid.txt; fi
-  fi
-fi
-if [ -z "$hits" ] || { ! grep -q "^VIOLATION" $out/check_$pid.txt && grep -q "no obligation was generated" $out/check_$pid.txt; }; then
-  (cd $V && python3 check.py $pid --tier $tier > $out/check_$pid.txt 2>$out/check_$pid.err; echo "exit=$? (tier $tier, full check; native sweep flagged nothing the restricted runs could decide)" >> $out/check_$pid.txt)
-fi
-Sif [ -n "$hits" ]; then
-  (cd $V && VERIF_ONLY="$hits" python3 check.py $pid --tier $tier > $out/check_$pid.txt 2>$out/check_$pid.err; echo "exit=$? (tier $tier, restricted to the harnesses the native sweep flagged: $hits)" >> $out/check_$pid.txt)
-  if ! grep -q "^VIOLATION" $out/check_$pid.txt && [ "$tier" = quick ]; then
-    # the flagged harnesses may belong to the thorough tier only (larger bounds, slow ones)
-    (cd $V && VERIF_ONLY="$hits" python3 check.py $pid --tier thorough > $out/check_${pid}_thorough.txt 2>$out/check_${pid}_thorough.err; echo "exit=$? (tier thorough, restricted to the harnesses the native sweep flagged: $hits)" >> $out/check_${pid}_thorough.txt)
-    if grep -q "^VIOLATION" $out/check_${pid}_thorough.txt; then cp $out/check_${pid}_thorough.txt $out/check_$pid.txt; fi
-  fi
-fi
-if [ -z "$hits" ] || { ! grep -q "^VIOLATION" $out/check_$pid.txt && grep -q "no obligation was generated" $out/check_$pid.txt; }; then
-  (cd $V && python3 check.py $pid --tier $tier > $out/check_$pid.txt 2>$out/check_$pid.err; echo "exit=$? (tier $tier, full check; native sweep flagged nothing the restricted runs could decide)" >> $out/check_$pid.txt)
-fi
-=if [ -n "$hits" ]; then
-  (cd $V && VERIF_ONLY="$hits" python3 check.py $pid --tier $tier > $out/check_$pid.txt 2>$out/check_$pid.err; echo "exit=$? (tier $tier, restricted to the harnesses the native sweep flagged: $hits)" >> $out/check_$pid.txt)
-  if ! grep -q "^VIOLATION" $out/check_$pid.txt && [ "$tier" = quick ]; then
-    # the flagged harnesses may belong to the thorough tier only (larger bounds, slow ones)
-    (cd $V && VERIF_ONLY="$hits" python3 check.py $pid --tier thorough > $out/check_${pid}_thorough.txt 2>$out/check_${pid}_thorough.err; echo "exit=$? (tier thorough, restricted to the harnesses the native sweep flagged: $hits)" >> $out/check_${pid}_thorough.txt)
-    if grep -q "^VIOLATION" $out/check_${pid}_thorough.txt; then cp $out/check_${pid}_thorough.txt $out/check_$pid.txt; fi
-  fi
-fi
-if [ -z "$hits" ] || { ! grep -q "^VIOLATION" $out/check_$pid.txt && grep -q "no obligation was generated" $out/check_$pid.txt; }; then
-  (cd $V && python3 check.py $pid --tier $tier > $out/check_$pid.txt 2>$out/check_$pid.err; echo "exit=$? (tier $tier, full check; native sweep flagged nothing the restricted runs could decide)" >> $out/check_$pid.txt)
-fi
-$if [ -n "$hits" ]; then
-  (cd $V && VERIF_ONLY="$hits" python3 check.py $pid --tier $tier > $out/check_$pid.txt 2>$out/check_$pid.err; echo "exit=$? (tier $tier, restricted to the harnesses the native sweep flagged: $hits)" >> $out/check_$pid.txt)
-  if ! grep -q "^VIOLATION" $out/check_$pid.txt && [ "$tier" = quick ]; then
-    # the flagged harnesses may belong to the thorough tier only (larger bounds, slow ones)
-    (cd $V && VERIF_ONLY="$hits" python3 check.py $pid --tier thorough > $out/check_${pid}_thorough.txt 2>$out/check_${pid}_thorough.err; echo "exit=$? (tier thorough, restricted to the harnesses the native sweep flagged: $hits)" >> $out/check_${pid}_thorough.txt)
-    if grep -q "^VIOLATION" $out/check_${pid}_thorough.txt; then cp $out/check_${pid}_thorough.txt $out/check_$pid.txt; fi
-  fi
-fi
-if [ -z "$hits" ] || { ! grep -q "^VIOLATION" $out/check_$pid.txt && grep -q "no obligation was generated" $out/check_$pid.txt; }; then
-  (cd $V && python3 check.py $pid --tier $tier > $out/check_$pid.txt 2>$out/check_$pid.err; echo "exit=$? (tier $tier, full check; native sweep flagged nothing the restricted runs could decide)" >> $out/check_$pid.txt)
-fi
-{if [ -n "$hits" ]; then
-  (cd $V && VERIF_ONLY="$hits" python3 check.py $pid --tier $tier > $out/check_$pid.txt 2>$out/check_$pid.err; echo "exit=$? (tier $tier, restricted to the harnesses the native sweep flagged: $hits)" >> $out/check_$pid.txt)
-  if ! grep -q "^VIOLATION" $out/check_$pid.txt && [ "$tier" = quick ]; then
-    # the flagged harnesses may belong to the thorough tier only (larger bounds, slow ones)
-    (cd $V && VERIF_ONLY="$hits" python3 check.py $pid --tier thorough > $out/check_${pid}_thorough.txt 2>$out/check_${pid}_thorough.err; echo "exit=$? (tier thorough, restricted to the harnesses the native sweep flagged: $hits)" >> $out/check_${pid}_thorough.txt)
-    if grep -q "^VIOLATION" $out/check_${pid}_thorough.txt; then cp $out/check_${pid}_thorough.txt $out/check_$pid.txt; fi
-  fi
-fi
-if [ -z "$hits" ] || { ! grep -q "^VIOLATION" $out/check_$pid.txt && grep -q "no obligation was generated" $out/check_$pid.txt; }; then
-  (cd $V && python3 check.py $pid --tier $tier > $out/check_$pid.txt 2>$out/check_$pid.err; echo "exit=$? (tier $tier, full check; native sweep flagged nothing the restricted runs could decide)" >> $out/check_$pid.txt)
-fi
-Vif [ -n "$hits" ]; then
-  (cd $V && VERIF_ONLY="$hits" python3 check.py $pid --tier $tier > $out/check_$pid.txt 2>$out/check_$pid.err; echo "exit=$? (tier $tier, restricted to the harnesses the native sweep flagged: $hits)" >> $out/check_$pid.txt)
-  if ! grep -q "^VIOLATION" $out/check_$pid.txt && [ "$tier" = quick ]; then
-    # the flagged harnesses may belong to the thorough tier only (larger bounds, slow ones)
-    (cd $V && VERIF_ONLY="$hits" python3 check.py $pid --tier thorough > $out/check_${pid}_thorough.txt 2>$out/check_${pid}_thorough.err; echo "exit=$? (tier thorough, restricted to the harnesses the native sweep flagged: $hits)" >> $out/check_${pid}_thorough.txt)
-    if grep -q "^VIOLATION" $out/check_${pid}_thorough.txt; then cp $out/check_${pid}_thorough.txt $out/check_$pid.txt; fi
-  fi
-fi
-if [ -z "$hits" ] || { ! grep -q "^VIOLATION" $out/check_$pid.txt && grep -q "no obligation was generated" $out/check_$pid.txt; }; then
-  (cd $V && python3 check.py $pid --tier $tier > $out/check_$pid.txt 2>$out/check_$pid.err; echo "exit=$? (tier $tier, full check; native sweep flagged nothing the restricted runs could decide)" >> $out/check_$pid.txt)
-fi
-Eif [ -n "$hits" ]; then
-  (cd $V && VERIF_ONLY="$hits" python3 check.py $pid --tier $tier > $out/check_$pid.txt 2>$out/check_$pid.err; echo "exit=$? (tier $tier, restricted to the harnesses the native sweep flagged: $hits)" >> $out/check_$pid.txt)
-  if ! grep -q "^VIOLATION" $out/check_$pid.txt && [ "$tier" = quick ]; then
-    # the flagged harnesses may belong to the thorough tier only (larger bounds, slow ones)
-    (cd $V && VERIF_ONLY="$hits" python3 check.py $pid --tier thorough > $out/check_${pid}_thorough.txt 2>$out/check_${pid}_thorough.err; echo "exit=$? (tier thorough, restricted to the harnesses the native sweep flagged: $hits)" >> $out/check_${pid}_thorough.txt)
-    if grep -q "^VIOLATION" $out/check_${pid}_thorough.txt; then cp $out/check_${pid}_thorough.txt $out/check_$pid.txt; fi
-  fi
-fi
-if [ -z "$hits" ] || { ! grep -q "^VIOLATION" $out/check_$pid.txt && grep -q "no obligation was generated" $out/check_$pid.txt; }; then
-  (cd $V && python3 check.py $pid --tier $tier > $out/check_$pid.txt 2>$out/check_$pid.err; echo "exit=$? (tier $tier, full check; native sweep flagged nothing the restricted runs could decide)" >> $out/check_$pid.txt)
-fi
-Rif [ -n "$hits" ]; then
-  (cd $V && VERIF_ONLY="$hits" python3 check.py $pid --tier $tier > $out/check_$pid.txt 2>$out/check_$pid.err; echo "exit=$? (tier $tier, restricted to the harnesses the native sweep flagged: $hits)" >> $out/check_$pid.txt)
-  if ! grep -q "^VIOLATION" $out/check_$pid.txt && [ "$tier" = quick ]; then
-    # the flagged harnesses may belong to the thorough tier only (larger bounds, slow ones)
-    (cd $V && VERIF_ONLY="$hits" python3 check.py $pid --tier thorough > $out/check_${pid}_thorough.txt 2>$out/check_${pid}_thorough.err; echo "exit=$? (tier thorough, restricted to the harnesses the native sweep flagged: $hits)" >> $out/check_${pid}_thorough.txt)
-    if grep -q "^VIOLATION" $out/check_${pid}_thorough.txt; then cp $out/check_${pid}_thorough.txt $out/check_$pid.txt; fi
-  fi
-fi
-if [ -z "$hits" ] || { ! grep -q "^VIOLATION" $out/check_$pid.txt && grep -q "no obligation was generated" $out/check_$pid.txt; }; then
-  (cd $V && python3 check.py $pid --tier $tier > $out/check_$pid.txt 2>$out/check_$pid.err; echo "exit=$? (tier $tier, full check; native sweep flagged nothing the restricted runs could decide)" >> $out/check_$pid.txt)
-fi
-Iif [ -n "$hits" ]; then
-  (cd $V && VERIF_ONLY="$hits" python3 check.py $pid --tier $tier > $out/check_$pid.txt 2>$out/check_$pid.err; echo "exit=$? (tier $tier, restricted to the harnesses the native sweep flagged: $hits)" >> $out/check_$pid.txt)
-  if ! grep -q "^VIOLATION" $out/check_$pid.txt && [ "$tier" = quick ]; then
-    # the flagged harnesses may belong to the thorough tier only (larger bounds, slow ones)
-    (cd $V && VERIF_ONLY="$hits" python3 check.py $pid --tier thorough > $out/check_${pid}_thorough.txt 2>$out/check_${pid}_thorough.err; echo "exit=$? (tier thorough, restricted to the harnesses the native sweep flagged: $hits)" >> $out/check_${pid}_thorough.txt)
-    if grep -q "^VIOLATION" $out/check_${pid}_thorough.txt; then cp $out/check_${pid}_thorough.txt $out/check_$pid.txt; fi
-  fi
-fi
-if [ -z "$hits" ] || { ! grep -q "^VIOLATION" $out/check_$pid.txt && grep -q "no obligation was generated" $out/check_$pid.txt; }; then
-  (cd $V && python3 check.py $pid --tier $tier > $out/check_$pid.txt 2>$out/check_$pid.err; echo "exit=$? (tier $tier, full check; native sweep flagged nothing the restricted runs could decide)" >> $out/check_$pid.txt)
-fi
-Fif [ -n "$hits" ]; then
-  (cd $V && VERIF_ONLY="$hits" python3 check.py $pid --tier $tier > $out/check_$pid.txt 2>$out/check_$pid.err; echo "exit=$? (tier $tier, restricted to the harnesses the native sweep flagged: $hits)" >> $out/check_$pid.txt)
-  if ! grep -q "^VIOLATION" $out/check_$pid.txt && [ "$tier" = quick ]; then
-    # the flagged harnesses may belong to the thorough tier only (larger bounds, slow ones)
-    (cd $V && VERIF_ONLY="$hits" python3 check.py $pid --tier thorough > $out/check_${pid}_thorough.txt 2>$out/check_${pid}_thorough.err; echo "exit=$? (tier thorough, restricted to the harnesses the native sweep flagged: $hits)" >> $out/check_${pid}_thorough.txt)
-    if grep -q "^VIOLATION" $out/check_${pid}_thorough.txt; then cp $out/check_${pid}_thorough.txt $out/check_$pid.txt; fi
-  fi
-fi
-if [ -z "$hits" ] || { ! grep -q "^VIOLATION" $out/check_$pid.txt && grep -q "no obligation was generated" $out/check_$pid.txt; }; then
-  (cd $V && python3 check.py $pid --tier $tier > $out/check_$pid.txt 2>$out/check_$pid.err; echo "exit=$? (tier $tier, full check; native sweep flagged nothing the restricted runs could decide)" >> $out/check_$pid.txt)
-fi
-_if [ -n "$hits" ]; then
-  (cd $V && VERIF_ONLY="$hits" python3 check.py $pid --tier $tier > $out/check_$pid.txt 2>$out/check_$pid.err; echo "exit=$? (tier $tier, restricted to the harnesses the native sweep flagged: $hits)" >> $out/check_$pid.txt)
-  if ! grep -q "^VIOLATION" $out/check_$pid.txt && [ "$tier" = quick ]; then
-    # the flagged harnesses may belong to the thorough tier only (larger bounds, slow ones)
-    (cd $V && VERIF_ONLY="$hits" python3 check.py $pid --tier thorough > $out/check_${pid}_thorough.txt 2>$out/check_${pid}_thorough.err; echo "exit=$? (tier thorough, restricted to the harnesses the native sweep flagged: $hits)" >> $out/check_${pid}_thorough.txt)
-    if grep -q "^VIOLATION" $out/check_${pid}_thorough.txt; then cp $out/check_${pid}_thorough.txt $out/check_$pid.txt; fi
-  fi
-fi
-if [ -z "$hits" ] || { ! grep -q "^VIOLATION" $out/check_$pid.txt && grep -q "no obligation was generated" $out/check_$pid.txt; }; then
-  (cd $V && python3 check.py $pid --tier $tier > $out/check_$pid.txt 2>$out/check_$pid.err; echo "exit=$? (tier $tier, full check; native sweep flagged nothing the restricted runs could decide)" >> $out/check_$pid.txt)
-fi
-Wif [ -n "$hits" ]; then
-  (cd $V && VERIF_ONLY="$hits" python3 check.py $pid --tier $tier > $out/check_$pid.txt 2>$out/check_$pid.err; echo "exit=$? (tier $tier, restricted to the harnesses the native sweep flagged: $hits)" >> $out/check_$pid.txt)
-  if ! grep -q "^VIOLATION" $out/check_$pid.txt && [ "$tier" = quick ]; then
-    # the flagged harnesses may belong to the thorough tier only (larger bounds, slow ones)
-    (cd $V && VERIF_ONLY="$hits" python3 check.py $pid --tier thorough > $out/check_${pid}_thorough.txt 2>$out/check_${pid}_thorough.err; echo "exit=$? (tier thorough, restricted to the harnesses the native sweep flagged: $hits)" >> $out/check_${pid}_thorough.txt)
-    if grep -q "^VIOLATION" $out/check_${pid}_thorough.txt; then cp $out/check_${pid}_thorough.txt $out/check_$pid.txt; fi
-  fi
-fi
-if [ -z "$hits" ] || { ! grep -q "^VIOLATION" $out/check_$pid.txt && grep -q "no obligation was generated" $out/check_$pid.txt; }; then
-  (cd $V && python3 check.py $pid --tier $tier > $out/check_$pid.txt 2>$out/check_$pid.err; echo "exit=$? (tier $tier, full check; native sweep flagged nothing the restricted runs could decide)" >> $out/check_$pid.txt)
-fi
-Oif [ -n "$hits" ]; then
-  (cd $V && VERIF_ONLY="$hits" python3 check.py $pid --tier $tier > $out/check_$pid.txt 2>$out/check_$pid.err; echo "exit=$? (tier $tier, restricted to the harnesses the native sweep flagged: $hits)" >> $out/check_$pid.txt)
-  if ! grep -q "^VIOLATION" $out/check_$pid.txt && [ "$tier" = quick ]; then
-    # the flagged harnesses may belong to the thorough tier only (larger bounds, slow ones)
-    (cd $V && VERIF_ONLY="$hits" python3 check.py $pid --tier thorough > $out/check_${pid}_thorough.txt 2>$out/check_${pid}_thorough.err; echo "exit=$? (tier thorough, restricted to the harnesses the native sweep flagged: $hits)" >> $out/check_${pid}_thorough.txt)
-    if grep -q "^VIOLATION" $out/check_${pid}_thorough.txt; then cp $out/check_${pid}_thorough.txt $out/check_$pid.txt; fi
-  fi
-fi
-if [ -z "$hits" ] || { ! grep -q "^VIOLATION" $out/check_$pid.txt && grep -q "no obligation was generated" $out/check_$pid.txt; }; then
-  (cd $V && python3 check.py $pid --tier $tier > $out/check_$pid.txt 2>$out/check_$pid.err; echo "exit=$? (tier $tier, full check; native sweep flagged nothing the restricted runs could decide)" >> $out/check_$pid.txt)
-fi
-Rif [ -n "$hits" ]; then
-  (cd $V && VERIF_ONLY="$hits" python3 check.py $pid --tier $tier > $out/check_$pid.txt 2>$out/check_$pid.err; echo "exit=$? (tier $tier, restricted to the harnesses the native sweep flagged: $hits)" >> $out/check_$pid.txt)
-  if ! grep -q "^VIOLATION" $out/check_$pid.txt && [ "$tier" = quick ]; then
-    # the flagged harnesses may belong to the thorough tier only (larger bounds, slow ones)
-    (cd $V && VERIF_ONLY="$hits" python3 check.py $pid --tier thorough > $out/check_${pid}_thorough.txt 2>$out/check_${pid}_thorough.err; echo "exit=$? (tier thorough, restricted to the harnesses the native sweep flagged: $hits)" >> $out/check_${pid}_thorough.txt)
-    if grep -q "^VIOLATION" $out/check_${pid}_thorough.txt; then cp $out/check_${pid}_thorough.txt $out/check_$pid.txt; fi
-  fi
-fi
-if [ -z "$hits" ] || { ! grep -q "^VIOLATION" $out/check_$pid.txt && grep -q "no obligation was generated" $out/check_$pid.txt; }; then
-  (cd $V && python3 check.py $pid --tier $tier > $out/check_$pid.txt 2>$out/check_$pid.err; echo "exit=$? (tier $tier, full check; native sweep flagged nothing the restricted runs could decide)" >> $out/check_$pid.txt)
-fi
-Kif [ -n "$hits" ]; then
-  (cd $V && VERIF_ONLY="$hits" python3 check.py $pid --tier $tier > $out/check_$pid.txt 2>$out/check_$pid.err; echo "exit=$? (tier $tier, restricted to the harnesses the native sweep flagged: $hits)" >> $out/check_$pid.txt)
-  if ! grep -q "^VIOLATION" $out/check_$pid.txt && [ "$tier" = quick ]; then
-    # the flagged harnesses may belong to the thorough tier only (larger bounds, slow ones)
-    (cd $V && VERIF_ONLY="$hits" python3 check.py $pid --tier thorough > $out/check_${pid}_thorough.txt 2>$out/check_${pid}_thorough.err; echo "exit=$? (tier thorough, restricted to the harnesses the native sweep flagged: $hits)" >> $out/check_${pid}_thorough.txt)
-    if grep -q "^VIOLATION" $out/check_${pid}_thorough.txt; then cp $out/check_${pid}_thorough.txt $out/check_$pid.txt; fi
-  fi
-fi
-if [ -z "$hits" ] || { ! grep -q "^VIOLATION" $out/check_$pid.txt && grep -q "no obligation was generated" $out/check_$pid.txt; }; then
-  (cd $V && python3 check.py $pid --tier $tier > $out/check_$pid.txt 2>$out/check_$pid.err; echo "exit=$? (tier $tier, full check; native sweep flagged nothing the restricted runs could decide)" >> $out/check_$pid.txt)
-fi
-Eif [ -n "$hits" ]; then
-  (cd $V && VERIF_ONLY="$hits" python3 check.py $pid --tier $tier > $out/check_$pid.txt 2>$out/check_$pid.err; echo "exit=$? (tier $tier, restricted to the harnesses the native sweep flagged: $hits)" >> $out/check_$pid.txt)
-  if ! grep -q "^VIOLATION" $out/check_$pid.txt && [ "$tier" = quick ]; then
-    # the flagged harnesses may belong to the thorough tier only (larger bounds, slow ones)
-    (cd $V && VERIF_ONLY="$hits" python3 check.py $pid --tier thorough > $out/check_${pid}_thorough.txt 2>$out/check_${pid}_thorough.err; echo "exit=$? (tier thorough, restricted to the harnesses the native sweep flagged: $hits)" >> $out/check_${pid}_thorough.txt)
-    if grep -q "^VIOLATION" $out/check_${pid}_thorough.txt; then cp $out/check_${pid}_thorough.txt $out/check_$pid.txt; fi
-  fi
-fi
-if [ -z "$hits" ] || { ! grep -q "^VIOLATION" $out/check_$pid.txt && grep -q "no obligation was generated" $out/check_$pid.txt; }; then
-  (cd $V && python3 check.py $pid --tier $tier > $out/check_$pid.txt 2>$out/check_$pid.err; echo "exit=$? (tier $tier, full check; native sweep flagged nothing the restricted runs could decide)" >> $out/check_$pid.txt)
-fi
-Rif [ -n "$hits" ]; then
-  (cd $V && VERIF_ONLY="$hits" python3 check.py $pid --tier $tier > $out/check_$pid.txt 2>$out/check_$pid.err; echo "exit=$? (tier $tier, restricted to the harnesses the native sweep flagged: $hits)" >> $out/check_$pid.txt)
-  if ! grep -q "^VIOLATION" $out/check_$pid.txt && [ "$tier" = quick ]; then
-    # the flagged harnesses may belong to the thorough tier only (larger bounds, slow ones)
-    (cd $V && VERIF_ONLY="$hits" python3 check.py $pid --tier thorough > $out/check_${pid}_thorough.txt 2>$out/check_${pid}_thorough.err; echo "exit=$? (tier thorough, restricted to the harnesses the native sweep flagged: $hits)" >> $out/check_${pid}_thorough.txt)
-    if grep -q "^VIOLATION" $out/check_${pid}_thorough.txt; then cp $out/check_${pid}_thorough.txt $out/check_$pid.txt; fi
-  fi
-fi
-if [ -z "$hits" ] || { ! grep -q "^VIOLATION" $out/check_$pid.txt && grep -q "no obligation was generated" $out/check_$pid.txt; }; then
-  (cd $V && python3 check.py $pid --tier $tier > $out/check_$pid.txt 2>$out/check_$pid.err; echo "exit=$? (tier $tier, full check; native sweep flagged nothing the restricted runs could decide)" >> $out/check_$pid.txt)
-fi
-Sif [ -n "$hits" ]; then
-  (cd $V && VERIF_ONLY="$hits" python3 check.py $pid --tier $tier > $out/check_$pid.txt 2>$out/check_$pid.err; echo "exit=$? (tier $tier, restricted to the harnesses the native sweep flagged: $hits)" >> $out/check_$pid.txt)
-  if ! grep -q "^VIOLATION" $out/check_$pid.txt && [ "$tier" = quick ]; then
-    # the flagged harnesses may belong to the thorough tier only (larger bounds, slow ones)
-    (cd $V && VERIF_ONLY="$hits" python3 check.py $pid --tier thorough > $out/check_${pid}_thorough.txt 2>$out/check_${pid}_thorough.err; echo "exit=$? (tier thorough, restricted to the harnesses the native sweep flagged: $hits)" >> $out/check_${pid}_thorough.txt)
-    if grep -q "^VIOLATION" $out/check_${pid}_thorough.txt; then cp $out/check_${pid}_thorough.txt $out/check_$pid.txt; fi
-  fi
-fi
-if [ -z "$hits" ] || { ! grep -q "^VIOLATION" $out/check_$pid.txt && grep -q "no obligation was generated" $out/check_$pid.txt; }; then
-  (cd $V && python3 check.py $pid --tier $tier > $out/check_$pid.txt 2>$out/check_$pid.err; echo "exit=$? (tier $tier, full check; native sweep flagged nothing the restricted runs could decide)" >> $out/check_$pid.txt)
-fi
-:if [ -n "$hits" ]; then
-  (cd $V && VERIF_ONLY="$hits" python3 check.py $pid --tier $tier > $out/check_$pid.txt 2>$out/check_$pid.err; echo "exit=$? (tier $tier, restricted to the harnesses the native sweep flagged: $hits)" >> $out/check_$pid.txt)
-  if ! grep -q "^VIOLATION" $out/check_$pid.txt && [ "$tier" = quick ]; then
-    # the flagged harnesses may belong to the thorough tier only (larger bounds, slow ones)
-    (cd $V && VERIF_ONLY="$hits" python3 check.py $pid --tier thorough > $out/check_${pid}_thorough.txt 2>$out/check_${pid}_thorough.err; echo "exit=$? (tier thorough, restricted to the harnesses the native sweep flagged: $hits)" >> $out/check_${pid}_thorough.txt)
-    if grep -q "^VIOLATION" $out/check_${pid}_thorough.txt; then cp $out/check_${pid}_thorough.txt $out/check_$pid.txt; fi
-  fi
-fi
-if [ -z "$hits" ] || { ! grep -q "^VIOLATION" $out/check_$pid.txt && grep -q "no obligation was generated" $out/check_$pid.txt; }; then
-  (cd $V && python3 check.py $pid --tier $tier > $out/check_$pid.txt 2>$out/check_$pid.err; echo "exit=$? (tier $tier, full check; native sweep flagged nothing the restricted runs could decide)" >> $out/check_$pid.txt)
-fi
--if [ -n "$hits" ]; then
-  (cd $V && VERIF_ONLY="$hits" python3 check.py $pid --tier $tier > $out/check_$pid.txt 2>$out/check_$pid.err; echo "exit=$? (tier $tier, restricted to the harnesses the native sweep flagged: $hits)" >> $out/check_$pid.txt)
-  if ! grep -q "^VIOLATION" $out/check_$pid.txt && [ "$tier" = quick ]; then
-    # the flagged harnesses may belong to the thorough tier only (larger bounds, slow ones)
-    (cd $V && VERIF_ONLY="$hits" python3 check.py $pid --tier thorough > $out/check_${pid}_thorough.txt 2>$out/check_${pid}_thorough.err; echo "exit=$? (tier thorough, restricted to the harnesses the native sweep flagged: $hits)" >> $out/check_${pid}_thorough.txt)
-    if grep -q "^VIOLATION" $out/check_${pid}_thorough.txt; then cp $out/check_${pid}_thorough.txt $out/check_$pid.txt; fi
-  fi
-fi
-if [ -z "$hits" ] || { ! grep -q "^VIOLATION" $out/check_$pid.txt && grep -q "no obligation was generated" $out/check_$pid.txt; }; then
-  (cd $V && python3 check.py $pid --tier $tier > $out/check_$pid.txt 2>$out/check_$pid.err; echo "exit=$? (tier $tier, full check; native sweep flagged nothing the restricted runs could decide)" >> $out/check_$pid.txt)
-fi
-8if [ -n "$hits" ]; then
-  (cd $V && VERIF_ONLY="$hits" python3 check.py $pid --tier $tier > $out/check_$pid.txt 2>$out/check_$pid.err; echo "exit=$? (tier $tier, restricted to the harnesses the native sweep flagged: $hits)" >> $out/check_$pid.txt)
-  if ! grep -q "^VIOLATION" $out/check_$pid.txt && [ "$tier" = quick ]; then
-    # the flagged harnesses may belong to the thorough tier only (larger bounds, slow ones)
-    (cd $V && VERIF_ONLY="$hits" python3 check.py $pid --tier thorough > $out/check_${pid}_thorough.txt 2>$out/check_${pid}_thorough.err; echo "exit=$? (tier thorough, restricted to the harnesses the native sweep flagged: $hits)" >> $out/check_${pid}_thorough.txt)
-    if grep -q "^VIOLATION" $out/check_${pid}_thorough.txt; then cp $out/check_${pid}_thorough.txt $out/check_$pid.txt; fi
-  fi
-fi
-if [ -z "$hits" ] || { ! grep -q "^VIOLATION" $out/check_$pid.txt && grep -q "no obligation was generated" $out/check_$pid.txt; }; then
-  (cd $V && python3 check.py $pid --tier $tier > $out/check_$pid.txt 2>$out/check_$pid.err; echo "exit=$? (tier $tier, full check; native sweep flagged nothing the restricted runs could decide)" >> $out/check_$pid.txt)
-fi
-}if [ -n "$hits" ]; then
-  (cd $V && VERIF_ONLY="$hits" python3 check.py $pid --tier $tier > $out/check_$pid.txt 2>$out/check_$pid.err; echo "exit=$? (tier $tier, restricted to the harnesses the native sweep flagged: $hits)" >> $out/check_$pid.txt)
-  if ! grep -q "^VIOLATION" $out/check_$pid.txt && [ "$tier" = quick ]; then
-    # the flagged harnesses may belong to the thorough tier only (larger bounds, slow ones)
-    (cd $V && VERIF_ONLY="$hits" python3 check.py $pid --tier thorough > $out/check_${pid}_thorough.txt 2>$out/check_${pid}_thorough.err; echo "exit=$? (tier thorough, restricted to the harnesses the native sweep flagged: $hits)" >> $out/check_${pid}_thorough.txt)
-    if grep -q "^VIOLATION" $out/check_${pid}_thorough.txt; then cp $out/check_${pid}_thorough.txt $out/check_$pid.txt; fi
-  fi
-fi
-if [ -z "$hits" ] || { ! grep -q "^VIOLATION" $out/check_$pid.txt && grep -q "no obligation was generated" $out/check_$pid.txt; }; then
-  (cd $V && python3 check.py $pid --tier $tier > $out/check_$pid.txt 2>$out/check_$pid.err; echo "exit=$? (tier $tier, full check; native sweep flagged nothing the restricted runs could decide)" >> $out/check_$pid.txt)
-fi
-
-if [ -n "$hits" ]; then
-  (cd $V && VERIF_ONLY="$hits" python3 check.py $pid --tier $tier > $out/check_$pid.txt 2>$out/check_$pid.err; echo "exit=$? (tier $tier, restricted to the harnesses the native sweep flagged: $hits)" >> $out/check_$pid.txt)
-  if ! grep -q "^VIOLATION" $out/check_$pid.txt && [ "$tier" = quick ]; then
-    # the flagged harnesses may belong to the thorough tier only (larger bounds, slow ones)
-    (cd $V && VERIF_ONLY="$hits" python3 check.py $pid --tier thorough > $out/check_${pid}_thorough.txt 2>$out/check_${pid}_thorough.err; echo "exit=$? (tier thorough, restricted to the harnesses the native sweep flagged: $hits)" >> $out/check_${pid}_thorough.txt)
-    if grep -q "^VIOLATION" $out/check_${pid}_thorough.txt; then cp $out/check_${pid}_thorough.txt $out/check_$pid.txt; fi
-  fi
-fi
-if [ -z "$hits" ] || { ! grep -q "^VIOLATION" $out/check_$pid.txt && grep -q "no obligation was generated" $out/check_$pid.txt; }; then
-  (cd $V && python3 check.py $pid --tier $tier > $out/check_$pid.txt 2>$out/check_$pid.err; echo "exit=$? (tier $tier, full check; native sweep flagged nothing the restricted runs could decide)" >> $out/check_$pid.txt)
-fi
-(if [ -n "$hits" ]; then
-  (cd $V && VERIF_ONLY="$hits" python3 check.py $pid --tier $tier > $out/check_$pid.txt 2>$out/check_$pid.err; echo "exit=$? (tier $tier, restricted to the harnesses the native sweep flagged: $hits)" >> $out/check_$pid.txt)
-  if ! grep -q "^VIOLATION" $out/check_$pid.txt && [ "$tier" = quick ]; then
-    # the flagged harnesses may belong to the thorough tier only (larger bounds, slow ones)
-    (cd $V && VERIF_ONLY="$hits" python3 check.py $pid --tier thorough > $out/check_${pid}_thorough.txt 2>$out/check_${pid}_thorough.err; echo "exit=$? (tier thorough, restricted to the harnesses the native sweep flagged: $hits)" >> $out/check_${pid}_thorough.txt)
-    if grep -q "^VIOLATION" $out/check_${pid}_thorough.txt; then cp $out/check_${pid}_thorough.txt $out/check_$pid.txt; fi
-  fi
-fi
-if [ -z "$hits" ] || { ! grep -q "^VIOLATION" $out/check_$pid.txt && grep -q "no obligation was generated" $out/check_$pid.txt; }; then
-  (cd $V && python3 check.py $pid --tier $tier > $out/check_$pid.txt 2>$out/check_$pid.err; echo "exit=$? (tier $tier, full check; native sweep flagged nothing the restricted runs could decide)" >> $out/check_$pid.txt)
-fi
-cif [ -n "$hits" ]; then
-  (cd $V && VERIF_ONLY="$hits" python3 check.py $pid --tier $tier > $out/check_$pid.txt 2>$out/check_$pid.err; echo "exit=$? (tier $tier, restricted to the harnesses the native sweep flagged: $hits)" >> $out/check_$pid.txt)
-  if ! grep -q "^VIOLATION" $out/check_$pid.txt && [ "$tier" = quick ]; then
-    # the flagged harnesses may belong to the thorough tier only (larger bounds, slow ones)
-    (cd $V && VERIF_ONLY="$hits" python3 check.py $pid --tier thorough > $out/check_${pid}_thorough.txt 2>$out/check_${pid}_thorough.err; echo "exit=$? (tier thorough, restricted to the harnesses the native sweep flagged: $hits)" >> $out/check_${pid}_thorough.txt)
-    if grep -q "^VIOLATION" $out/check_${pid}_thorough.txt; then cp $out/check_${pid}_thorough.txt $out/check_$pid.txt; fi
-  fi
-fi
-if [ -z "$hits" ] || { ! grep -q "^VIOLATION" $out/check_$pid.txt && grep -q "no obligation was generated" $out/check_$pid.txt; }; then
-  (cd $V && python3 check.py $pid --tier $tier > $out/check_$pid.txt 2>$out/check_$pid.err; echo "exit=$? (tier $tier, full check; native sweep flagged nothing the restricted runs could decide)" >> $out/check_$pid.txt)
-fi
-dif [ -n "$hits" ]; then
-  (cd $V && VERIF_ONLY="$hits" python3 check.py $pid --tier $tier > $out/check_$pid.txt 2>$out/check_$pid.err; echo "exit=$? (tier $tier, restricted to the harnesses the native sweep flagged: $hits)" >> $out/check_$pid.txt)
-  if ! grep -q "^VIOLATION" $out/check_$pid.txt && [ "$tier" = quick ]; then
-    # the flagged harnesses may belong to the thorough tier only (larger bounds, slow ones)
-    (cd $V && VERIF_ONLY="$hits" python3 check.py $pid --tier thorough > $out/check_${pid}_thorough.txt 2>$out/check_${pid}_thorough.err; echo "exit=$? (tier thorough, restricted to the harnesses the native sweep flagged: $hits)" >> $out/check_${pid}_thorough.txt)
-    if grep -q "^VIOLATION" $out/check_${pid}_thorough.txt; then cp $out/check_${pid}_thorough.txt $out/check_$pid.txt; fi
-  fi
-fi
-if [ -z "$hits" ] || { ! grep -q "^VIOLATION" $out/check_$pid.txt && grep -q "no obligation was generated" $out/check_$pid.txt; }; then
-  (cd $V && python3 check.py $pid --tier $tier > $out/check_$pid.txt 2>$out/check_$pid.err; echo "exit=$? (tier $tier, full check; native sweep flagged nothing the restricted runs could decide)" >> $out/check_$pid.txt)
-fi
- if [ -n "$hits" ]; then
-  (cd $V && VERIF_ONLY="$hits" python3 check.py $pid --tier $tier > $out/check_$pid.txt 2>$out/check_$pid.err; echo "exit=$? (tier $tier, restricted to the harnesses the native sweep flagged: $hits)" >> $out/check_$pid.txt)
-  if ! grep -q "^VIOLATION" $out/check_$pid.txt && [ "$tier" = quick ]; then
-    # the flagged harnesses may belong to the thorough tier only (larger bounds, slow ones)
-    (cd $V && VERIF_ONLY="$hits" python3 check.py $pid --tier thorough > $out/check_${pid}_thorough.txt 2>$out/check_${pid}_thorough.err; echo "exit=$? (tier thorough, restricted to the harnesses the native sweep flagged: $hits)" >> $out/check_${pid}_thorough.txt)
-    if grep -q "^VIOLATION" $out/check_${pid}_thorough.txt; then cp $out/check_${pid}_thorough.txt $out/check_$pid.txt; fi
-  fi
-fi
-if [ -z "$hits" ] || { ! grep -q "^VIOLATION" $out/check_$pid.txt && grep -q "no obligation was generated" $out/check_$pid.txt; }; then
-  (cd $V && python3 check.py $pid --tier $tier > $out/check_$pid.txt 2>$out/check_$pid.err; echo "exit=$? (tier $tier, full check; native sweep flagged nothing the restricted runs could decide)" >> $out/check_$pid.txt)
-fi
-$if [ -n "$hits" ]; then
-  (cd $V && VERIF_ONLY="$hits" python3 check.py $pid --tier $tier > $out/check_$pid.txt 2>$out/check_$pid.err; echo "exit=$? (tier $tier, restricted to the harnesses the native sweep flagged: $hits)" >> $out/check_$pid.txt)
-  if ! grep -q "^VIOLATION" $out/check_$pid.txt && [ "$tier" = quick ]; then
-    # the flagged harnesses may belong to the thorough tier only (larger bounds, slow ones)
-    (cd $V && VERIF_ONLY="$hits" python3 check.py $pid --tier thorough > $out/check_${pid}_thorough.txt 2>$out/check_${pid}_thorough.err; echo "exit=$? (tier thorough, restricted to the harnesses the native sweep flagged: $hits)" >> $out/check_${pid}_thorough.txt)
-    if grep -q "^VIOLATION" $out/check_${pid}_thorough.txt; then cp $out/check_${pid}_thorough.txt $out/check_$pid.txt; fi
-  fi
-fi
-if [ -z "$hits" ] || { ! grep -q "^VIOLATION" $out/check_$pid.txt && grep -q "no obligation was generated" $out/check_$pid.txt; }; then
-  (cd $V && python3 check.py $pid --tier $tier > $out/check_$pid.txt 2>$out/check_$pid.err; echo "exit=$? (tier $tier, full check; native sweep flagged nothing the restricted runs could decide)" >> $out/check_$pid.txt)
-fi
-Vif [ -n "$hits" ]; then
-  (cd $V && VERIF_ONLY="$hits" python3 check.py $pid --tier $tier > $out/check_$pid.txt 2>$out/check_$pid.err; echo "exit=$? (tier $tier, restricted to the harnesses the native sweep flagged: $hits)" >> $out/check_$pid.txt)
-  if ! grep -q "^VIOLATION" $out/check_$pid.txt && [ "$tier" = quick ]; then
-    # the flagged harnesses may belong to the thorough tier only (larger bounds, slow ones)
-    (cd $V && VERIF_ONLY="$hits" python3 check.py $pid --tier thorough > $out/check_${pid}_thorough.txt 2>$out/check_${pid}_thorough.err; echo "exit=$? (tier thorough, restricted to the harnesses the native sweep flagged: $hits)" >> $out/check_${pid}_thorough.txt)
-    if grep -q "^VIOLATION" $out/check_${pid}_thorough.txt; then cp $out/check_${pid}_thorough.txt $out/check_$pid.txt; fi
-  fi
-fi
-if [ -z "$hits" ] || { ! grep -q "^VIOLATION" $out/check_$pid.txt && grep -q "no obligation was generated" $out/check_$pid.txt; }; then
-  (cd $V && python3 check.py $pid --tier $tier > $out/check_$pid.txt 2>$out/check_$pid.err; echo "exit=$? (tier $tier, full check; native sweep flagged nothing the restricted runs could decide)" >> $out/check_$pid.txt)
-fi
- if [ -n "$hits" ]; then
-  (cd $V && VERIF_ONLY="$hits" python3 check.py $pid --tier $tier > $out/check_$pid.txt 2>$out/check_$pid.err; echo "exit=$? (tier $tier, restricted to the harnesses the native sweep flagged: $hits)" >> $out/check_$pid.txt)
-  if ! grep -q "^VIOLATION" $out/check_$pid.txt && [ "$tier" = quick ]; then
-    # the flagged harnesses may belong to the thorough tier only (larger bounds, slow ones)
-    (cd $V && VERIF_ONLY="$hits" python3 check.py $pid --tier thorough > $out/check_${pid}_thorough.txt 2>$out/check_${pid}_thorough.err; echo "exit=$? (tier thorough, restricted to the harnesses the native sweep flagged: $hits)" >> $out/check_${pid}_thorough.txt)
-    if grep -q "^VIOLATION" $out/check_${pid}_thorough.txt; then cp $out/check_${pid}_thorough.txt $out/check_$pid.txt; fi
-  fi
-fi
-if [ -z "$hits" ] || { ! grep -q "^VIOLATION" $out/check_$pid.txt && grep -q "no obligation was generated" $out/check_$pid.txt; }; then
-  (cd $V && python3 check.py $pid --tier $tier > $out/check_$pid.txt 2>$out/check_$pid.err; echo "exit=$? (tier $tier, full check; native sweep flagged nothing the restricted runs could decide)" >> $out/check_$pid.txt)
-fi
-&if [ -n "$hits" ]; then
-  (cd $V && VERIF_ONLY="$hits" python3 check.py $pid --tier $tier > $out/check_$pid.txt 2>$out/check_$pid.err; echo "exit=$? (tier $tier, restricted to the harnesses the native sweep flagged: $hits)" >> $out/check_$pid.txt)
-  if ! grep -q "^VIOLATION" $out/check_$pid.txt && [ "$tier" = quick ]; then
-    # the flagged harnesses may belong to the thorough tier only (larger bounds, slow ones)
-    (cd $V && VERIF_ONLY="$hits" python3 check.py $pid --tier thorough > $out/check_${pid}_thorough.txt 2>$out/check_${pid}_thorough.err; echo "exit=$? (tier thorough, restricted to the harnesses the native sweep flagged: $hits)" >> $out/check_${pid}_thorough.txt)
-    if grep -q "^VIOLATION" $out/check_${pid}_thorough.txt; then cp $out/check_${pid}_thorough.txt $out/check_$pid.txt; fi
-  fi
-fi
-if [ -z "$hits" ] || { ! grep -q "^VIOLATION" $out/check_$pid.txt && grep -q "no obligation was generated" $out/check_$pid.txt; }; then
-  (cd $V && python3 check.py $pid --tier $tier > $out/check_$pid.txt 2>$out/check_$pid.err; echo "exit=$? (tier $tier, full check; native sweep flagged nothing the restricted runs could decide)" >> $out/check_$pid.txt)
-fi
-&if [ -n "$hits" ]; then
-  (cd $V && VERIF_ONLY="$hits" python3 check.py $pid --tier $tier > $out/check_$pid.txt 2>$out/check_$pid.err; echo "exit=$? (tier $tier, restricted to the harnesses the native sweep flagged: $hits)" >> $out/check_$pid.txt)
-  if ! grep -q "^VIOLATION" $out/check_$pid.txt && [ "$tier" = quick ]; then
-    # the flagged harnesses may belong to the thorough tier only (larger bounds, slow ones)
-    (cd $V && VERIF_ONLY="$hits" python3 check.py $pid --tier thorough > $out/check_${pid}_thorough.txt 2>$out/check_${pid}_thorough.err; echo "exit=$? (tier thorough, restricted to the harnesses the native sweep flagged: $hits)" >> $out/check_${pid}_thorough.txt)
-    if grep -q "^VIOLATION" $out/check_${pid}_thorough.txt; then cp $out/check_${pid}_thorough.txt $out/check_$pid.txt; fi
-  fi
-fi
-if [ -z "$hits" ] || { ! grep -q "^VIOLATION" $out/check_$pid.txt && grep -q "no obligation was generated" $out/check_$pid.txt; }; then
-  (cd $V && python3 check.py $pid --tier $tier > $out/check_$pid.txt 2>$out/check_$pid.err; echo "exit=$? (tier $tier, full check; native sweep flagged nothing the restricted runs could decide)" >> $out/check_$pid.txt)
-fi
- if [ -n "$hits" ]; then
-  (cd $V && VERIF_ONLY="$hits" python3 check.py $pid --tier $tier > $out/check_$pid.txt 2>$out/check_$pid.err; echo "exit=$? (tier $tier, restricted to the harnesses the native sweep flagged: $hits)" >> $out/check_$pid.txt)
-  if ! grep -q "^VIOLATION" $out/check_$pid.txt && [ "$tier" = quick ]; then
-    # the flagged harnesses may belong to the thorough tier only (larger bounds, slow ones)
-    (cd $V && VERIF_ONLY="$hits" python3 check.py $pid --tier thorough > $out/check_${pid}_thorough.txt 2>$out/check_${pid}_thorough.err; echo "exit=$? (tier thorough, restricted to the harnesses the native sweep flagged: $hits)" >> $out/check_${pid}_thorough.txt)
-    if grep -q "^VIOLATION" $out/check_${pid}_thorough.txt; then cp $out/check_${pid}_thorough.txt $out/check_$pid.txt; fi
-  fi
-fi
-if [ -z "$hits" ] || { ! grep -q "^VIOLATION" $out/check_$pid.txt && grep -q "no obligation was generated" $out/check_$pid.txt; }; then
-  (cd $V && python3 check.py $pid --tier $tier > $out/check_$pid.txt 2>$out/check_$pid.err; echo "exit=$? (tier $tier, full check; native sweep flagged nothing the restricted runs could decide)" >> $out/check_$pid.txt)
-fi
-pif [ -n "$hits" ]; then
-  (cd $V && VERIF_ONLY="$hits" python3 check.py $pid --tier $tier > $out/check_$pid.txt 2>$out/check_$pid.err; echo "exit=$? (tier $tier, restricted to the harnesses the native sweep flagged: $hits)" >> $out/check_$pid.txt)
-  if ! grep -q "^VIOLATION" $out/check_$pid.txt && [ "$tier" = quick ]; then
-    # the flagged harnesses may belong to the thorough tier only (larger bounds, slow ones)
-    (cd $V && VERIF_ONLY="$hits" python3 check.py $pid --tier thorough > $out/check_${pid}_thorough.txt 2>$out/check_${pid}_thorough.err; echo "exit=$? (tier thorough, restricted to the harnesses the native sweep flagged: $hits)" >> $out/check_${pid}_thorough.txt)
-    if grep -q "^VIOLATION" $out/check_${pid}_thorough.txt; then cp $out/check_${pid}_thorough.txt $out/check_$pid.txt; fi
-  fi
-fi
-if [ -z "$hits" ] || { ! grep -q "^VIOLATION" $out/check_$pid.txt && grep -q "no obligation was generated" $out/check_$pid.txt; }; then
-  (cd $V && python3 check.py $pid --tier $tier > $out/check_$pid.txt 2>$out/check_$pid.err; echo "exit=$? (tier $tier, full check; native sweep flagged nothing the restricted runs could decide)" >> $out/check_$pid.txt)
-fi
-yif [ -n "$hits" ]; then
-  (cd $V && VERIF_ONLY="$hits" python3 check.py $pid --tier $tier > $out/check_$pid.txt 2>$out/check_$pid.err; echo "exit=$? (tier $tier, restricted to the harnesses the native sweep flagged: $hits)" >> $out/check_$pid.txt)
-  if ! grep -q "^VIOLATION" $out/check_$pid.txt && [ "$tier" = quick ]; then
-    # the flagged harnesses may belong to the thorough tier only (larger bounds, slow ones)
-    (cd $V && VERIF_ONLY="$hits" python3 check.py $pid --tier thorough > $out/check_${pid}_thorough.txt 2>$out/check_${pid}_thorough.err; echo "exit=$? (tier thorough, restricted to the harnesses the native sweep flagged: $hits)" >> $out/check_${pid}_thorough.txt)
-    if grep -q "^VIOLATION" $out/check_${pid}_thorough.txt; then cp $out/check_${pid}_thorough.txt $out/check_$pid.txt; fi
-  fi
-fi
-if [ -z "$hits" ] || { ! grep -q "^VIOLATION" $out/check_$pid.txt && grep -q "no obligation was generated" $out/check_$pid.txt; }; then
-  (cd $V && python3 check.py $pid --tier $tier > $out/check_$pid.txt 2>$out/check_$pid.err; echo "exit=$? (tier $tier, full check; native sweep flagged nothing the restricted runs could decide)" >> $out/check_$pid.txt)
-fi
-tif [ -n "$hits" ]; then
-  (cd $V && VERIF_ONLY="$hits" python3 check.py $pid --tier $tier > $out/check_$pid.txt 2>$out/check_$pid.err; echo "exit=$? (tier $tier, restricted to the harnesses the native sweep flagged: $hits)" >> $out/check_$pid.txt)
-  if ! grep -q "^VIOLATION" $out/check_$pid.txt && [ "$tier" = quick ]; then
-    # the flagged harnesses may belong to the thorough tier only (larger bounds, slow ones)
-    (cd $V && VERIF_ONLY="$hits" python3 check.py $pid --tier thorough > $out/check_${pid}_thorough.txt 2>$out/check_${pid}_thorough.err; echo "exit=$? (tier thorough, restricted to the harnesses the native sweep flagged: $hits)" >> $out/check_${pid}_thorough.txt)
-    if grep -q "^VIOLATION" $out/check_${pid}_thorough.txt; then cp $out/check_${pid}_thorough.txt $out/check_$pid.txt; fi
-  fi
-fi
-if [ -z "$hits" ] || { ! grep -q "^VIOLATION" $out/check_$pid.txt && grep -q "no obligation was generated" $out/check_$pid.txt; }; then
-  (cd $V && python3 check.py $pid --tier $tier > $out/check_$pid.txt 2>$out/check_$pid.err; echo "exit=$? (tier $tier, full check; native sweep flagged nothing the restricted runs could decide)" >> $out/check_$pid.txt)
-fi
-hif [ -n "$hits" ]; then
-  (cd $V && VERIF_ONLY="$hits" python3 check.py $pid --tier $tier > $out/check_$pid.txt 2>$out/check_$pid.err; echo "exit=$? (tier $tier, restricted to the harnesses the native sweep flagged: $hits)" >> $out/check_$pid.txt)
-  if ! grep -q "^VIOLATION" $out/check_$pid.txt && [ "$tier" = quick ]; then
-    # the flagged harnesses may belong to the thorough tier only (larger bounds, slow ones)
-    (cd $V && VERIF_ONLY="$hits" python3 check.py $pid --tier thorough > $out/check_${pid}_thorough.txt 2>$out/check_${pid}_thorough.err; echo "exit=$? (tier thorough, restricted to the harnesses the native sweep flagged: $hits)" >> $out/check_${pid}_thorough.txt)
-    if grep -q "^VIOLATION" $out/check_${pid}_thorough.txt; then cp $out/check_${pid}_thorough.txt $out/check_$pid.txt; fi
-  fi
-fi
-if [ -z "$hits" ] || { ! grep -q "^VIOLATION" $out/check_$pid.txt && grep -q "no obligation was generated" $out/check_$pid.txt; }; then
-  (cd $V && python3 check.py $pid --tier $tier > $out/check_$pid.txt 2>$out/check_$pid.err; echo "exit=$? (tier $tier, full check; native sweep flagged nothing the restricted runs could decide)" >> $out/check_$pid.txt)
-fi
-oif [ -n "$hits" ]; then
-  (cd $V && VERIF_ONLY="$hits" python3 check.py $pid --tier $tier > $out/check_$pid.txt 2>$out/check_$pid.err; echo "exit=$? (tier $tier, restricted to the harnesses the native sweep flagged: $hits)" >> $out/check_$pid.txt)
-  if ! grep -q "^VIOLATION" $out/check_$pid.txt && [ "$tier" = quick ]; then
-    # the flagged harnesses may belong to the thorough tier only (larger bounds, slow ones)
-    (cd $V && VERIF_ONLY="$hits" python3 check.py $pid --tier thorough > $out/check_${pid}_thorough.txt 2>$out/check_${pid}_thorough.err; echo "exit=$? (tier thorough, restricted to the harnesses the native sweep flagged: $hits)" >> $out/check_${pid}_thorough.txt)
-    if grep -q "^VIOLATION" $out/check_${pid}_thorough.txt; then cp $out/check_${pid}_thorough.txt $out/check_$pid.txt; fi
-  fi
-fi
-if [ -z "$hits" ] || { ! grep -q "^VIOLATION" $out/check_$pid.txt && grep -q "no obligation was generated" $out/check_$pid.txt; }; then
-  (cd $V && python3 check.py $pid --tier $tier > $out/check_$pid.txt 2>$out/check_$pid.err; echo "exit=$? (tier $tier, full check; native sweep flagged nothing the restricted runs could decide)" >> $out/check_$pid.txt)
-fi
-nif [ -n "$hits" ]; then
-  (cd $V && VERIF_ONLY="$hits" python3 check.py $pid --tier $tier > $out/check_$pid.txt 2>$out/check_$pid.err; echo "exit=$? (tier $tier, restricted to the harnesses the native sweep flagged: $hits)" >> $out/check_$pid.txt)
-  if ! grep -q "^VIOLATION" $out/check_$pid.txt && [ "$tier" = quick ]; then
-    # the flagged harnesses may belong to the thorough tier only (larger bounds, slow ones)
-    (cd $V && VERIF_ONLY="$hits" python3 check.py $pid --tier thorough > $out/check_${pid}_thorough.txt 2>$out/check_${pid}_thorough.err; echo "exit=$? (tier thorough, restricted to the harnesses the native sweep flagged: $hits)" >> $out/check_${pid}_thorough.txt)
-    if grep -q "^VIOLATION" $out/check_${pid}_thorough.txt; then cp $out/check_${pid}_thorough.txt $out/check_$pid.txt; fi
-  fi
-fi
-if [ -z "$hits" ] || { ! grep -q "^VIOLATION" $out/check_$pid.txt && grep -q "no obligation was generated" $out/check_$pid.txt; }; then
-  (cd $V && python3 check.py $pid --tier $tier > $out/check_$pid.txt 2>$out/check_$pid.err; echo "exit=$? (tier $tier, full check; native sweep flagged nothing the restricted runs could decide)" >> $out/check_$pid.txt)
-fi
-3if [ -n "$hits" ]; then
-  (cd $V && VERIF_ONLY="$hits" python3 check.py $pid --tier $tier > $out/check_$pid.txt 2>$out/check_$pid.err; echo "exit=$? (tier $tier, restricted to the harnesses the native sweep flagged: $hits)" >> $out/check_$pid.txt)
-  if ! grep -q "^VIOLATION" $out/check_$pid.txt && [ "$tier" = quick ]; then
-    # the flagged harnesses may belong to the thorough tier only (larger bounds, slow ones)
-    (cd $V && VERIF_ONLY="$hits" python3 check.py $pid --tier thorough > $out/check_${pid}_thorough.txt 2>$out/check_${pid}_thorough.err; echo "exit=$? (tier thorough, restricted to the harnesses the native sweep flagged: $hits)" >> $out/check_${pid}_thorough.txt)
-    if grep -q "^VIOLATION" $out/check_${pid}_thorough.txt; then cp $out/check_${pid}_thorough.txt $out/check_$pid.txt; fi
-  fi
-fi
-if [ -z "$hits" ] || { ! grep -q "^VIOLATION" $out/check_$pid.txt && grep -q "no obligation was generated" $out/check_$pid.txt; }; then
-  (cd $V && python3 check.py $pid --tier $tier > $out/check_$pid.txt 2>$out/check_$pid.err; echo "exit=$? (tier $tier, full check; native sweep flagged nothing the restricted runs could decide)" >> $out/check_$pid.txt)
-fi
- if [ -n "$hits" ]; then
-  (cd $V && VERIF_ONLY="$hits" python3 check.py $pid --tier $tier > $out/check_$pid.txt 2>$out/check_$pid.err; echo "exit=$? (tier $tier, restricted to the harnesses the native sweep flagged: $hits)" >> $out/check_$pid.txt)
-  if ! grep -q "^VIOLATION" $out/check_$pid.txt && [ "$tier" = quick ]; then
-    # the flagged harnesses may belong to the thorough tier only (larger bounds, slow ones)
-    (cd $V && VERIF_ONLY="$hits" python3 check.py $pid --tier thorough > $out/check_${pid}_thorough.txt 2>$out/check_${pid}_thorough.err; echo "exit=$? (tier thorough, restricted to the harnesses the native sweep flagged: $hits)" >> $out/check_${pid}_thorough.txt)
-    if grep -q "^VIOLATION" $out/check_${pid}_thorough.txt; then cp $out/check_${pid}_thorough.txt $out/check_$pid.txt; fi
-  fi
-fi
-if [ -z "$hits" ] || { ! grep -q "^VIOLATION" $out/check_$pid.txt && grep -q "no obligation was generated" $out/check_$pid.txt; }; then
-  (cd $V && python3 check.py $pid --tier $tier > $out/check_$pid.txt 2>$out/check_$pid.err; echo "exit=$? (tier $tier, full check; native sweep flagged nothing the restricted runs could decide)" >> $out/check_$pid.txt)
-fi
-cif [ -n "$hits" ]; then
-  (cd $V && VERIF_ONLY="$hits" python3 check.py $pid --tier $tier > $out/check_$pid.txt 2>$out/check_$pid.err; echo "exit=$? (tier $tier, restricted to the harnesses the native sweep flagged: $hits)" >> $out/check_$pid.txt)
-  if ! grep -q "^VIOLATION" $out/check_$pid.txt && [ "$tier" = quick ]; then
-    # the flagged harnesses may belong to the thorough tier only (larger bounds, slow ones)
-    (cd $V && VERIF_ONLY="$hits" python3 check.py $pid --tier thorough > $out/check_${pid}_thorough.txt 2>$out/check_${pid}_thorough.err; echo "exit=$? (tier thorough, restricted to the harnesses the native sweep flagged: $hits)" >> $out/check_${pid}_thorough.txt)
-    if grep -q "^VIOLATION" $out/check_${pid}_thorough.txt; then cp $out/check_${pid}_thorough.txt $out/check_$pid.txt; fi
-  fi
-fi
-if [ -z "$hits" ] || { ! grep -q "^VIOLATION" $out/check_$pid.txt && grep -q "no obligation was generated" $out/check_$pid.txt; }; then
-  (cd $V && python3 check.py $pid --tier $tier > $out/check_$pid.txt 2>$out/check_$pid.err; echo "exit=$? (tier $tier, full check; native sweep flagged nothing the restricted runs could decide)" >> $out/check_$pid.txt)
-fi
-hif [ -n "$hits" ]; then
-  (cd $V && VERIF_ONLY="$hits" python3 check.py $pid --tier $tier > $out/check_$pid.txt 2>$out/check_$pid.err; echo "exit=$? (tier $tier, restricted to the harnesses the native sweep flagged: $hits)" >> $out/check_$pid.txt)
-  if ! grep -q "^VIOLATION" $out/check_$pid.txt && [ "$tier" = quick ]; then
-    # the flagged harnesses may belong to the thorough tier only (larger bounds, slow ones)
-    (cd $V && VERIF_ONLY="$hits" python3 check.py $pid --tier thorough > $out/check_${pid}_thorough.txt 2>$out/check_${pid}_thorough.err; echo "exit=$? (tier thorough, restricted to the harnesses the native sweep flagged: $hits)" >> $out/check_${pid}_thorough.txt)
-    if grep -q "^VIOLATION" $out/check_${pid}_thorough.txt; then cp $out/check_${pid}_thorough.txt $out/check_$pid.txt; fi
-  fi
-fi
-if [ -z "$hits" ] || { ! grep -q "^VIOLATION" $out/check_$pid.txt && grep -q "no obligation was generated" $out/check_$pid.txt; }; then
-  (cd $V && python3 check.py $pid --tier $tier > $out/check_$pid.txt 2>$out/check_$pid.err; echo "exit=$? (tier $tier, full check; native sweep flagged nothing the restricted runs could decide)" >> $out/check_$pid.txt)
-fi
-eif [ -n "$hits" ]; then
-  (cd $V && VERIF_ONLY="$hits" python3 check.py $pid --tier $tier > $out/check_$pid.txt 2>$out/check_$pid.err; echo "exit=$? (tier $tier, restricted to the harnesses the native sweep flagged: $hits)" >> $out/check_$pid.txt)
-  if ! grep -q "^VIOLATION" $out/check_$pid.txt && [ "$tier" = quick ]; then
-    # the flagged harnesses may belong to the thorough tier only (larger bounds, slow ones)
-    (cd $V && VERIF_ONLY="$hits" python3 check.py $pid --tier thorough > $out/check_${pid}_thorough.txt 2>$out/check_${pid}_thorough.err; echo "exit=$? (tier thorough, restricted to the harnesses the native sweep flagged: $hits)" >> $out/check_${pid}_thorough.txt)
-    if grep -q "^VIOLATION" $out/check_${pid}_thorough.txt; then cp $out/check_${pid}_thorough.txt $out/check_$pid.txt; fi
-  fi
-fi
-if [ -z "$hits" ] || { ! grep -q "^VIOLATION" $out/check_$pid.txt && grep -q "no obligation was generated" $out/check_$pid.txt; }; then
-  (cd $V && python3 check.py $pid --tier $tier > $out/check_$pid.txt 2>$out/check_$pid.err; echo "exit=$? (tier $tier, full check; native sweep flagged nothing the restricted runs could decide)" >> $out/check_$pid.txt)
-fi
-cif [ -n "$hits" ]; then
-  (cd $V && VERIF_ONLY="$hits" python3 check.py $pid --tier $tier > $out/check_$pid.txt 2>$out/check_$pid.err; echo "exit=$? (tier $tier, restricted to the harnesses the native sweep flagged: $hits)" >> $out/check_$pid.txt)
-  if ! grep -q "^VIOLATION" $out/check_$pid.txt && [ "$tier" = quick ]; then
-    # the flagged harnesses may belong to the thorough tier only (larger bounds, slow ones)
-    (cd $V && VERIF_ONLY="$hits" python3 check.py $pid --tier thorough > $out/check_${pid}_thorough.txt 2>$out/check_${pid}_thorough.err; echo "exit=$? (tier thorough, restricted to the harnesses the native sweep flagged: $hits)" >> $out/check_${pid}_thorough.txt)
-    if grep -q "^VIOLATION" $out/check_${pid}_thorough.txt; then cp $out/check_${pid}_thorough.txt $out/check_$pid.txt; fi
-  fi
-fi
-if [ -z "$hits" ] || { ! grep -q "^VIOLATION" $out/check_$pid.txt && grep -q "no obligation was generated" $out/check_$pid.txt; }; then
-  (cd $V && python3 check.py $pid --tier $tier > $out/check_$pid.txt 2>$out/check_$pid.err; echo "exit=$? (tier $tier, full check; native sweep flagged nothing the restricted runs could decide)" >> $out/check_$pid.txt)
-fi
-kif [ -n "$hits" ]; then
-  (cd $V && VERIF_ONLY="$hits" python3 check.py $pid --tier $tier > $out/check_$pid.txt 2>$out/check_$pid.err; echo "exit=$? (tier $tier, restricted to the harnesses the native sweep flagged: $hits)" >> $out/check_$pid.txt)
-  if ! grep -q "^VIOLATION" $out/check_$pid.txt && [ "$tier" = quick ]; then
-    # the flagged harnesses may belong to the thorough tier only (larger bounds, slow ones)
-    (cd $V && VERIF_ONLY="$hits" python3 check.py $pid --tier thorough > $out/check_${pid}_thorough.txt 2>$out/check_${pid}_thorough.err; echo "exit=$? (tier thorough, restricted to the harnesses the native sweep flagged: $hits)" >> $out/check_${pid}_thorough.txt)
-    if grep -q "^VIOLATION" $out/check_${pid}_thorough.txt; then cp $out/check_${pid}_thorough.txt $out/check_$pid.txt; fi
-  fi
-fi
-if [ -z "$hits" ] || { ! grep -q "^VIOLATION" $out/check_$pid.txt && grep -q "no obligation was generated" $out/check_$pid.txt; }; then
-  (cd $V && python3 check.py $pid --tier $tier > $out/check_$pid.txt 2>$out/check_$pid.err; echo "exit=$? (tier $tier, full check; native sweep flagged nothing the restricted runs could decide)" >> $out/check_$pid.txt)
-fi
-.if [ -n "$hits" ]; then
-  (cd $V && VERIF_ONLY="$hits" python3 check.py $pid --tier $tier > $out/check_$pid.txt 2>$out/check_$pid.err; echo "exit=$? (tier $tier, restricted to the harnesses the native sweep flagged: $hits)" >> $out/check_$pid.txt)
-  if ! grep -q "^VIOLATION" $out/check_$pid.txt && [ "$tier" = quick ]; then
-    # the flagged harnesses may belong to the thorough tier only (larger bounds, slow ones)
-    (cd $V && VERIF_ONLY="$hits" python3 check.py $pid --tier thorough > $out/check_${pid}_thorough.txt 2>$out/check_${pid}_thorough.err; echo "exit=$? (tier thorough, restricted to the harnesses the native sweep flagged: $hits)" >> $out/check_${pid}_thorough.txt)
-    if grep -q "^VIOLATION" $out/check_${pid}_thorough.txt; then cp $out/check_${pid}_thorough.txt $out/check_$pid.txt; fi
-  fi
-fi
-if [ -z "$hits" ] || { ! grep -q "^VIOLATION" $out/check_$pid.txt && grep -q "no obligation was generated" $out/check_$pid.txt; }; then
-  (cd $V && python3 check.py $pid --tier $tier > $out/check_$pid.txt 2>$out/check_$pid.err; echo "exit=$? (tier $tier, full check; native sweep flagged nothing the restricted runs could decide)" >> $out/check_$pid.txt)
-fi
-pif [ -n "$hits" ]; then
-  (cd $V && VERIF_ONLY="$hits" python3 check.py $pid --tier $tier > $out/check_$pid.txt 2>$out/check_$pid.err; echo "exit=$? (tier $tier, restricted to the harnesses the native sweep flagged: $hits)" >> $out/check_$pid.txt)
-  if ! grep -q "^VIOLATION" $out/check_$pid.txt && [ "$tier" = quick ]; then
-    # the flagged harnesses may belong to the thorough tier only (larger bounds, slow ones)
-    (cd $V && VERIF_ONLY="$hits" python3 check.py $pid --tier thorough > $out/check_${pid}_thorough.txt 2>$out/check_${pid}_thorough.err; echo "exit=$? (tier thorough, restricted to the harnesses the native sweep flagged: $hits)" >> $out/check_${pid}_thorough.txt)
-    if grep -q "^VIOLATION" $out/check_${pid}_thorough.txt; then cp $out/check_${pid}_thorough.txt $out/check_$pid.txt; fi
-  fi
-fi
-if [ -z "$hits" ] || { ! grep -q "^VIOLATION" $out/check_$pid.txt && grep -q "no obligation was generated" $out/check_$pid.txt; }; then
-  (cd $V && python3 check.py $pid --tier $tier > $out/check_$pid.txt 2>$out/check_$pid.err; echo "exit=$? (tier $tier, full check; native sweep flagged nothing the restricted runs could decide)" >> $out/check_$pid.txt)
-fi
-yif [ -n "$hits" ]; then
-  (cd $V && VERIF_ONLY="$hits" python3 check.py $pid --tier $tier > $out/check_$pid.txt 2>$out/check_$pid.err; echo "exit=$? (tier $tier, restricted to the harnesses the native sweep flagged: $hits)" >> $out/check_$pid.txt)
-  if ! grep -q "^VIOLATION" $out/check_$pid.txt && [ "$tier" = quick ]; then
-    # the flagged harnesses may belong to the thorough tier only (larger bounds, slow ones)
-    (cd $V && VERIF_ONLY="$hits" python3 check.py $pid --tier thorough > $out/check_${pid}_thorough.txt 2>$out/check_${pid}_thorough.err; echo "exit=$? (tier thorough, restricted to the harnesses the native sweep flagged: $hits)" >> $out/check_${pid}_thorough.txt)
-    if grep -q "^VIOLATION" $out/check_${pid}_thorough.txt; then cp $out/check_${pid}_thorough.txt $out/check_$pid.txt; fi
-  fi
-fi
-if [ -z "$hits" ] || { ! grep -q "^VIOLATION" $out/check_$pid.txt && grep -q "no obligation was generated" $out/check_$pid.txt; }; then
-  (cd $V && python3 check.py $pid --tier $tier > $out/check_$pid.txt 2>$out/check_$pid.err; echo "exit=$? (tier $tier, full check; native sweep flagged nothing the restricted runs could decide)" >> $out/check_$pid.txt)
-fi
- if [ -n "$hits" ]; then
-  (cd $V && VERIF_ONLY="$hits" python3 check.py $pid --tier $tier > $out/check_$pid.txt 2>$out/check_$pid.err; echo "exit=$? (tier $tier, restricted to the harnesses the native sweep flagged: $hits)" >> $out/check_$pid.txt)
-  if ! grep -q "^VIOLATION" $out/check_$pid.txt && [ "$tier" = quick ]; then
-    # the flagged harnesses may belong to the thorough tier only (larger bounds, slow ones)
-    (cd $V && VERIF_ONLY="$hits" python3 check.py $pid --tier thorough > $out/check_${pid}_thorough.txt 2>$out/check_${pid}_thorough.err; echo "exit=$? (tier thorough, restricted to the harnesses the native sweep flagged: $hits)" >> $out/check_${pid}_thorough.txt)
-    if grep -q "^VIOLATION" $out/check_${pid}_thorough.txt; then cp $out/check_${pid}_thorough.txt $out/check_$pid.txt; fi
-  fi
-fi
-if [ -z "$hits" ] || { ! grep -q "^VIOLATION" $out/check_$pid.txt && grep -q "no obligation was generated" $out/check_$pid.txt; }; then
-  (cd $V && python3 check.py $pid --tier $tier > $out/check_$pid.txt 2>$out/check_$pid.err; echo "exit=$? (tier $tier, full check; native sweep flagged nothing the restricted runs could decide)" >> $out/check_$pid.txt)
-fi
--if [ -n "$hits" ]; then
-  (cd $V && VERIF_ONLY="$hits" python3 check.py $pid --tier $tier > $out/check_$pid.txt 2>$out/check_$pid.err; echo "exit=$? (tier $tier, restricted to the harnesses the native sweep flagged: $hits)" >> $out/check_$pid.txt)
-  if ! grep -q "^VIOLATION" $out/check_$pid.txt && [ "$tier" = quick ]; then
-    # the flagged harnesses may belong to the thorough tier only (larger bounds, slow ones)
-    (cd $V && VERIF_ONLY="$hits" python3 check.py $pid --tier thorough > $out/check_${pid}_thorough.txt 2>$out/check_${pid}_thorough.err; echo "exit=$? (tier thorough, restricted to the harnesses the native sweep flagged: $hits)" >> $out/check_${pid}_thorough.txt)
-    if grep -q "^VIOLATION" $out/check_${pid}_thorough.txt; then cp $out/check_${pid}_thorough.txt $out/check_$pid.txt; fi
-  fi
-fi
-if [ -z "$hits" ] || { ! grep -q "^VIOLATION" $out/check_$pid.txt && grep -q "no obligation was generated" $out/check_$pid.txt; }; then
-  (cd $V && python3 check.py $pid --tier $tier > $out/check_$pid.txt 2>$out/check_$pid.err; echo "exit=$? (tier $tier, full check; native sweep flagged nothing the restricted runs could decide)" >> $out/check_$pid.txt)
-fi
--if [ -n "$hits" ]; then
-  (cd $V && VERIF_ONLY="$hits" python3 check.py $pid --tier $tier > $out/check_$pid.txt 2>$out/check_$pid.err; echo "exit=$? (tier $tier, restricted to the harnesses the native sweep flagged: $hits)" >> $out/check_$pid.txt)
-  if ! grep -q "^VIOLATION" $out/check_$pid.txt && [ "$tier" = quick ]; then
-    # the flagged harnesses may belong to the thorough tier only (larger bounds, slow ones)
-    (cd $V && VERIF_ONLY="$hits" python3 check.py $pid --tier thorough > $out/check_${pid}_thorough.txt 2>$out/check_${pid}_thorough.err; echo "exit=$? (tier thorough, restricted to the harnesses the native sweep flagged: $hits)" >> $out/check_${pid}_thorough.txt)
-    if grep -q "^VIOLATION" $out/check_${pid}_thorough.txt; then cp $out/check_${pid}_thorough.txt $out/check_$pid.txt; fi
-  fi
-fi
-if [ -z "$hits" ] || { ! grep -q "^VIOLATION" $out/check_$pid.txt && grep -q "no obligation was generated" $out/check_$pid.txt; }; then
-  (cd $V && python3 check.py $pid --tier $tier > $out/check_$pid.txt 2>$out/check_$pid.err; echo "exit=$? (tier $tier, full check; native sweep flagged nothing the restricted runs could decide)" >> $out/check_$pid.txt)
-fi
-sif [ -n "$hits" ]; then
-  (cd $V && VERIF_ONLY="$hits" python3 check.py $pid --tier $tier > $out/check_$pid.txt 2>$out/check_$pid.err; echo "exit=$? (tier $tier, restricted to the harnesses the native sweep flagged: $hits)" >> $out/check_$pid.txt)
-  if ! grep -q "^VIOLATION" $out/check_$pid.txt && [ "$tier" = quick ]; then
-    # the flagged harnesses may belong to the thorough tier only (larger bounds, slow ones)
-    (cd $V && VERIF_ONLY="$hits" python3 check.py $pid --tier thorough > $out/check_${pid}_thorough.txt 2>$out/check_${pid}_thorough.err; echo "exit=$? (tier thorough, restricted to the harnesses the native sweep flagged: $hits)" >> $out/check_${pid}_thorough.txt)
-    if grep -q "^VIOLATION" $out/check_${pid}_thorough.txt; then cp $out/check_${pid}_thorough.txt $out/check_$pid.txt; fi
-  fi
-fi
-if [ -z "$hits" ] || { ! grep -q "^VIOLATION" $out/check_$pid.txt && grep -q "no obligation was generated" $out/check_$pid.txt; }; then
-  (cd $V && python3 check.py $pid --tier $tier > $out/check_$pid.txt 2>$out/check_$pid.err; echo "exit=$? (tier $tier, full check; native sweep flagged nothing the restricted runs could decide)" >> $out/check_$pid.txt)
-fi
-wif [ -n "$hits" ]; then
-  (cd $V && VERIF_ONLY="$hits" python3 check.py $pid --tier $tier > $out/check_$pid.txt 2>$out/check_$pid.err; echo "exit=$? (tier $tier, restricted to the harnesses the native sweep flagged: $hits)" >> $out/check_$pid.txt)
-  if ! grep -q "^VIOLATION" $out/check_$pid.txt && [ "$tier" = quick ]; then
-    # the flagged harnesses may belong to the thorough tier only (larger bounds, slow ones)
-    (cd $V && VERIF_ONLY="$hits" python3 check.py $pid --tier thorough > $out/check_${pid}_thorough.txt 2>$out/check_${pid}_thorough.err; echo "exit=$? (tier thorough, restricted to the harnesses the native sweep flagged: $hits)" >> $out/check_${pid}_thorough.txt)
-    if grep -q "^VIOLATION" $out/check_${pid}_thorough.txt; then cp $out/check_${pid}_thorough.txt $out/check_$pid.txt; fi
-  fi
-fi
-if [ -z "$hits" ] || { ! grep -q "^VIOLATION" $out/check_$pid.txt && grep -q "no obligation was generated" $out/check_$pid.txt; }; then
-  (cd $V && python3 check.py $pid --tier $tier > $out/check_$pid.txt 2>$out/check_$pid.err; echo "exit=$? (tier $tier, full check; native sweep flagged nothing the restricted runs could decide)" >> $out/check_$pid.txt)
-fi
-eif [ -n "$hits" ]; then
-  (cd $V && VERIF_ONLY="$hits" python3 check.py $pid --tier $tier > $out/check_$pid.txt 2>$out/check_$pid.err; echo "exit=$? (tier $tier, restricted to the harnesses the native sweep flagged: $hits)" >> $out/check_$pid.txt)
-  if ! grep -q "^VIOLATION" $out/check_$pid.txt && [ "$tier" = quick ]; then
-    # the flagged harnesses may belong to the thorough tier only (larger bounds, slow ones)
-    (cd $V && VERIF_ONLY="$hits" python3 check.py $pid --tier thorough > $out/check_${pid}_thorough.txt 2>$out/check_${pid}_thorough.err; echo "exit=$? (tier thorough, restricted to the harnesses the native sweep flagged: $hits)" >> $out/check_${pid}_thorough.txt)
-    if grep -q "^VIOLATION" $out/check_${pid}_thorough.txt; then cp $out/check_${pid}_thorough.txt $out/check_$pid.txt; fi
-  fi
-fi
-if [ -z "$hits" ] || { ! grep -q "^VIOLATION" $out/check_$pid.txt && grep -q "no obligation was generated" $out/check_$pid.txt; }; then
-  (cd $V && python3 check.py $pid --tier $tier > $out/check_$pid.txt 2>$out/check_$pid.err; echo "exit=$? (tier $tier, full check; native sweep flagged nothing the restricted runs could decide)" >> $out/check_$pid.txt)
-fi
-eif [ -n "$hits" ]; then
-  (cd $V && VERIF_ONLY="$hits" python3 check.py $pid --tier $tier > $out/check_$pid.txt 2>$out/check_$pid.err; echo "exit=$? (tier $tier, restricted to the harnesses the native sweep flagged: $hits)" >> $out/check_$pid.txt)
-  if ! grep -q "^VIOLATION" $out/check_$pid.txt && [ "$tier" = quick ]; then
-    # the flagged harnesses may belong to the thorough tier only (larger bounds, slow ones)
-    (cd $V && VERIF_ONLY="$hits" python3 check.py $pid --tier thorough > $out/check_${pid}_thorough.txt 2>$out/check_${pid}_thorough.err; echo "exit=$? (tier thorough, restricted to the harnesses the native sweep flagged: $hits)" >> $out/check_${pid}_thorough.txt)
-    if grep -q "^VIOLATION" $out/check_${pid}_thorough.txt; then cp $out/check_${pid}_thorough.txt $out/check_$pid.txt; fi
-  fi
-fi
-if [ -z "$hits" ] || { ! grep -q "^VIOLATION" $out/check_$pid.txt && grep -q "no obligation was generated" $out/check_$pid.txt; }; then
-  (cd $V && python3 check.py $pid --tier $tier > $out/check_$pid.txt 2>$out/check_$pid.err; echo "exit=$? (tier $tier, full check; native sweep flagged nothing the restricted runs could decide)" >> $out/check_$pid.txt)
-fi
-pif [ -n "$hits" ]; then
-  (cd $V && VERIF_ONLY="$hits" python3 check.py $pid --tier $tier > $out/check_$pid.txt 2>$out/check_$pid.err; echo "exit=$? (tier $tier, restricted to the harnesses the native sweep flagged: $hits)" >> $out/check_$pid.txt)
-  if ! grep -q "^VIOLATION" $out/check_$pid.txt && [ "$tier" = quick ]; then
-    # the flagged harnesses may belong to the thorough tier only (larger bounds, slow ones)
-    (cd $V && VERIF_ONLY="$hits" python3 check.py $pid --tier thorough > $out/check_${pid}_thorough.txt 2>$out/check_${pid}_thorough.err; echo "exit=$? (tier thorough, restricted to the harnesses the native sweep flagged: $hits)" >> $out/check_${pid}_thorough.txt)
-    if grep -q "^VIOLATION" $out/check_${pid}_thorough.txt; then cp $out/check_${pid}_thorough.txt $out/check_$pid.txt; fi
-  fi
-fi
-if [ -z "$hits" ] || { ! grep -q "^VIOLATION" $out/check_$pid.txt && grep -q "no obligation was generated" $out/check_$pid.txt; }; then
-  (cd $V && python3 check.py $pid --tier $tier > $out/check_$pid.txt 2>$out/check_$pid.err; echo "exit=$? (tier $tier, full check; native sweep flagged nothing the restricted runs could decide)" >> $out/check_$pid.txt)
-fi
- if [ -n "$hits" ]; then
-  (cd $V && VERIF_ONLY="$hits" python3 check.py $pid --tier $tier > $out/check_$pid.txt 2>$out/check_$pid.err; echo "exit=$? (tier $tier, restricted to the harnesses the native sweep flagged: $hits)" >> $out/check_$pid.txt)
-  if ! grep -q "^VIOLATION" $out/check_$pid.txt && [ "$tier" = quick ]; then
-    # the flagged harnesses may belong to the thorough tier only (larger bounds, slow ones)
-    (cd $V && VERIF_ONLY="$hits" python3 check.py $pid --tier thorough > $out/check_${pid}_thorough.txt 2>$out/check_${pid}_thorough.err; echo "exit=$? (tier thorough, restricted to the harnesses the native sweep flagged: $hits)" >> $out/check_${pid}_thorough.txt)
-    if grep -q "^VIOLATION" $out/check_${pid}_thorough.txt; then cp $out/check_${pid}_thorough.txt $out/check_$pid.txt; fi
-  fi
-fi
-if [ -z "$hits" ] || { ! grep -q "^VIOLATION" $out/check_$pid.txt && grep -q "no obligation was generated" $out/check_$pid.txt; }; then
-  (cd $V && python3 check.py $pid --tier $tier > $out/check_$pid.txt 2>$out/check_$pid.err; echo "exit=$? (tier $tier, full check; native sweep flagged nothing the restricted runs could decide)" >> $out/check_$pid.txt)
-fi
-$if [ -n "$hits" ]; then
-  (cd $V && VERIF_ONLY="$hits" python3 check.py $pid --tier $tier > $out/check_$pid.txt 2>$out/check_$pid.err; echo "exit=$? (tier $tier, restricted to the harnesses the native sweep flagged: $hits)" >> $out/check_$pid.txt)
-  if ! grep -q "^VIOLATION" $out/check_$pid.txt && [ "$tier" = quick ]; then
-    # the flagged harnesses may belong to the thorough tier only (larger bounds, slow ones)
-    (cd $V && VERIF_ONLY="$hits" python3 check.py $pid --tier thorough > $out/check_${pid}_thorough.txt 2>$out/check_${pid}_thorough.err; echo "exit=$? (tier thorough, restricted to the harnesses the native sweep flagged: $hits)" >> $out/check_${pid}_thorough.txt)
-    if grep -q "^VIOLATION" $out/check_${pid}_thorough.txt; then cp $out/check_${pid}_thorough.txt $out/check_$pid.txt; fi
-  fi
-fi
-if [ -z "$hits" ] || { ! grep -q "^VIOLATION" $out/check_$pid.txt && grep -q "no obligation was generated" $out/check_$pid.txt; }; then
-  (cd $V && python3 check.py $pid --tier $tier > $out/check_$pid.txt 2>$out/check_$pid.err; echo "exit=$? (tier $tier, full check; native sweep flagged nothing the restricted runs could decide)" >> $out/check_$pid.txt)
-fi
-{if [ -n "$hits" ]; then
-  (cd $V && VERIF_ONLY="$hits" python3 check.py $pid --tier $tier > $out/check_$pid.txt 2>$out/check_$pid.err; echo "exit=$? (tier $tier, restricted to the harnesses the native sweep flagged: $hits)" >> $out/check_$pid.txt)
-  if ! grep -q "^VIOLATION" $out/check_$pid.txt && [ "$tier" = quick ]; then
-    # the flagged harnesses may belong to the thorough tier only (larger bounds, slow ones)
-    (cd $V && VERIF_ONLY="$hits" python3 check.py $pid --tier thorough > $out/check_${pid}_thorough.txt 2>$out/check_${pid}_thorough.err; echo "exit=$? (tier thorough, restricted to the harnesses the native sweep flagged: $hits)" >> $out/check_${pid}_thorough.txt)
-    if grep -q "^VIOLATION" $out/check_${pid}_thorough.txt; then cp $out/check_${pid}_thorough.txt $out/check_$pid.txt; fi
-  fi
-fi
-if [ -z "$hits" ] || { ! grep -q "^VIOLATION" $out/check_$pid.txt && grep -q "no obligation was generated" $out/check_$pid.txt; }; then
-  (cd $V && python3 check.py $pid --tier $tier > $out/check_$pid.txt 2>$out/check_$pid.err; echo "exit=$? (tier $tier, full check; native sweep flagged nothing the restricted runs could decide)" >> $out/check_$pid.txt)
-fi
-Sif [ -n "$hits" ]; then
-  (cd $V && VERIF_ONLY="$hits" python3 check.py $pid --tier $tier > $out/check_$pid.txt 2>$out/check_$pid.err; echo "exit=$? (tier $tier, restricted to the harnesses the native sweep flagged: $hits)" >> $out/check_$pid.txt)
-  if ! grep -q "^VIOLATION" $out/check_$pid.txt && [ "$tier" = quick ]; then
-    # the flagged harnesses may belong to the thorough tier only (larger bounds, slow ones)
-    (cd $V && VERIF_ONLY="$hits" python3 check.py $pid --tier thorough > $out/check_${pid}_thorough.txt 2>$out/check_${pid}_thorough.err; echo "exit=$? (tier thorough, restricted to the harnesses the native sweep flagged: $hits)" >> $out/check_${pid}_thorough.txt)
-    if grep -q "^VIOLATION" $out/check_${pid}_thorough.txt; then cp $out/check_${pid}_thorough.txt $out/check_$pid.txt; fi
-  fi
-fi
-if [ -z "$hits" ] || { ! grep -q "^VIOLATION" $out/check_$pid.txt && grep -q "no obligation was generated" $out/check_$pid.txt; }; then
-  (cd $V && python3 check.py $pid --tier $tier > $out/check_$pid.txt 2>$out/check_$pid.err; echo "exit=$? (tier $tier, full check; native sweep flagged nothing the restricted runs could decide)" >> $out/check_$pid.txt)
-fi
-Wif [ -n "$hits" ]; then
-  (cd $V && VERIF_ONLY="$hits" python3 check.py $pid --tier $tier > $out/check_$pid.txt 2>$out/check_$pid.err; echo "exit=$? (tier $tier, restricted to the harnesses the native sweep flagged: $hits)" >> $out/check_$pid.txt)
-  if ! grep -q "^VIOLATION" $out/check_$pid.txt && [ "$tier" = quick ]; then
-    # the flagged harnesses may belong to the thorough tier only (larger bounds, slow ones)
-    (cd $V && VERIF_ONLY="$hits" python3 check.py $pid --tier thorough > $out/check_${pid}_thorough.txt 2>$out/check_${pid}_thorough.err; echo "exit=$? (tier thorough, restricted to the harnesses the native sweep flagged: $hits)" >> $out/check_${pid}_thorough.txt)
-    if grep -q "^VIOLATION" $out/check_${pid}_thorough.txt; then cp $out/check_${pid}_thorough.txt $out/check_$pid.txt; fi
-  fi
-fi
-if [ -z "$hits" ] || { ! grep -q "^VIOLATION" $out/check_$pid.txt && grep -q "no obligation was generated" $out/check_$pid.txt; }; then
-  (cd $V && python3 check.py $pid --tier $tier > $out/check_$pid.txt 2>$out/check_$pid.err; echo "exit=$? (tier $tier, full check; native sweep flagged nothing the restricted runs could decide)" >> $out/check_$pid.txt)
-fi
-Eif [ -n "$hits" ]; then
-  (cd $V && VERIF_ONLY="$hits" python3 check.py $pid --tier $tier > $out/check_$pid.txt 2>$out/check_$pid.err; echo "exit=$? (tier $tier, restricted to the harnesses the native sweep flagged: $hits)" >> $out/check_$pid.txt)
-  if ! grep -q "^VIOLATION" $out/check_$pid.txt && [ "$tier" = quick ]; then
-    # the flagged harnesses may belong to the thorough tier only (larger bounds, slow ones)
-    (cd $V && VERIF_ONLY="$hits" python3 check.py $pid --tier thorough > $out/check_${pid}_thorough.txt 2>$out/check_${pid}_thorough.err; echo "exit=$? (tier thorough, restricted to the harnesses the native sweep flagged: $hits)" >> $out/check_${pid}_thorough.txt)
-    if grep -q "^VIOLATION" $out/check_${pid}_thorough.txt; then cp $out/check_${pid}_thorough.txt $out/check_$pid.txt; fi
-  fi
-fi
-if [ -z "$hits" ] || { ! grep -q "^VIOLATION" $out/check_$pid.txt && grep -q "no obligation was generated" $out/check_$pid.txt; }; then
-  (cd $V && python3 check.py $pid --tier $tier > $out/check_$pid.txt 2>$out/check_$pid.err; echo "exit=$? (tier $tier, full check; native sweep flagged nothing the restricted runs could decide)" >> $out/check_$pid.txt)
-fi
-Eif [ -n "$hits" ]; then
-  (cd $V && VERIF_ONLY="$hits" python3 check.py $pid --tier $tier > $out/check_$pid.txt 2>$out/check_$pid.err; echo "exit=$? (tier $tier, restricted to the harnesses the native sweep flagged: $hits)" >> $out/check_$pid.txt)
-  if ! grep -q "^VIOLATION" $out/check_$pid.txt && [ "$tier" = quick ]; then
-    # the flagged harnesses may belong to the thorough tier only (larger bounds, slow ones)
-    (cd $V && VERIF_ONLY="$hits" python3 check.py $pid --tier thorough > $out/check_${pid}_thorough.txt 2>$out/check_${pid}_thorough.err; echo "exit=$? (tier thorough, restricted to the harnesses the native sweep flagged: $hits)" >> $out/check_${pid}_thorough.txt)
-    if grep -q "^VIOLATION" $out/check_${pid}_thorough.txt; then cp $out/check_${pid}_thorough.txt $out/check_$pid.txt; fi
-  fi
-fi
-if [ -z "$hits" ] || { ! grep -q "^VIOLATION" $out/check_$pid.txt && grep -q "no obligation was generated" $out/check_$pid.txt; }; then
-  (cd $V && python3 check.py $pid --tier $tier > $out/check_$pid.txt 2>$out/check_$pid.err; echo "exit=$? (tier $tier, full check; native sweep flagged nothing the restricted runs could decide)" >> $out/check_$pid.txt)
-fi
-Pif [ -n "$hits" ]; then
-  (cd $V && VERIF_ONLY="$hits" python3 check.py $pid --tier $tier > $out/check_$pid.txt 2>$out/check_$pid.err; echo "exit=$? (tier $tier, restricted to the harnesses the native sweep flagged: $hits)" >> $out/check_$pid.txt)
-  if ! grep -q "^VIOLATION" $out/check_$pid.txt && [ "$tier" = quick ]; then
-    # the flagged harnesses may belong to the thorough tier only (larger bounds, slow ones)
-    (cd $V && VERIF_ONLY="$hits" python3 check.py $pid --tier thorough > $out/check_${pid}_thorough.txt 2>$out/check_${pid}_thorough.err; echo "exit=$? (tier thorough, restricted to the harnesses the native sweep flagged: $hits)" >> $out/check_${pid}_thorough.txt)
-    if grep -q "^VIOLATION" $out/check_${pid}_thorough.txt; then cp $out/check_${pid}_thorough.txt $out/check_$pid.txt; fi
-  fi
-fi
-if [ -z "$hits" ] || { ! grep -q "^VIOLATION" $out/check_$pid.txt && grep -q "no obligation was generated" $out/check_$pid.txt; }; then
-  (cd $V && python3 check.py $pid --tier $tier > $out/check_$pid.txt 2>$out/check_$pid.err; echo "exit=$? (tier $tier, full check; native sweep flagged nothing the restricted runs could decide)" >> $out/check_$pid.txt)
-fi
-:if [ -n "$hits" ]; then
-  (cd $V && VERIF_ONLY="$hits" python3 check.py $pid --tier $tier > $out/check_$pid.txt 2>$out/check_$pid.err; echo "exit=$? (tier $tier, restricted to the harnesses the native sweep flagged: $hits)" >> $out/check_$pid.txt)
-  if ! grep -q "^VIOLATION" $out/check_$pid.txt && [ "$tier" = quick ]; then
-    # the flagged harnesses may belong to the thorough tier only (larger bounds, slow ones)
-    (cd $V && VERIF_ONLY="$hits" python3 check.py $pid --tier thorough > $out/check_${pid}_thorough.txt 2>$out/check_${pid}_thorough.err; echo "exit=$? (tier thorough, restricted to the harnesses the native sweep flagged: $hits)" >> $out/check_${pid}_thorough.txt)
-    if grep -q "^VIOLATION" $out/check_${pid}_thorough.txt; then cp $out/check_${pid}_thorough.txt $out/check_$pid.txt; fi
-  fi
-fi
-if [ -z "$hits" ] || { ! grep -q "^VIOLATION" $out/check_$pid.txt && grep -q "no obligation was generated" $out/check_$pid.txt; }; then
-  (cd $V && python3 check.py $pid --tier $tier > $out/check_$pid.txt 2>$out/check_$pid.err; echo "exit=$? (tier $tier, full check; native sweep flagged nothing the restricted runs could decide)" >> $out/check_$pid.txt)
-fi
--if [ -n "$hits" ]; then
-  (cd $V && VERIF_ONLY="$hits" python3 check.py $pid --tier $tier > $out/check_$pid.txt 2>$out/check_$pid.err; echo "exit=$? (tier $tier, restricted to the harnesses the native sweep flagged: $hits)" >> $out/check_$pid.txt)
-  if ! grep -q "^VIOLATION" $out/check_$pid.txt && [ "$tier" = quick ]; then
-    # the flagged harnesses may belong to the thorough tier only (larger bounds, slow ones)
-    (cd $V && VERIF_ONLY="$hits" python3 check.py $pid --tier thorough > $out/check_${pid}_thorough.txt 2>$out/check_${pid}_thorough.err; echo "exit=$? (tier thorough, restricted to the harnesses the native sweep flagged: $hits)" >> $out/check_${pid}_thorough.txt)
-    if grep -q "^VIOLATION" $out/check_${pid}_thorough.txt; then cp $out/check_${pid}_thorough.txt $out/check_$pid.txt; fi
-  fi
-fi
-if [ -z "$hits" ] || { ! grep -q "^VIOLATION" $out/check_$pid.txt && grep -q "no obligation was generated" $out/check_$pid.txt; }; then
-  (cd $V && python3 check.py $pid --tier $tier > $out/check_$pid.txt 2>$out/check_$pid.err; echo "exit=$? (tier $tier, full check; native sweep flagged nothing the restricted runs could decide)" >> $out/check_$pid.txt)
-fi
-3if [ -n "$hits" ]; then
-  (cd $V && VERIF_ONLY="$hits" python3 check.py $pid --tier $tier > $out/check_$pid.txt 2>$out/check_$pid.err; echo "exit=$? (tier $tier, restricted to the harnesses the native sweep flagged: $hits)" >> $out/check_$pid.txt)
-  if ! grep -q "^VIOLATION" $out/check_$pid.txt && [ "$tier" = quick ]; then
-    # the flagged harnesses may belong to the thorough tier only (larger bounds, slow ones)
-    (cd $V && VERIF_ONLY="$hits" python3 check.py $pid --tier thorough > $out/check_${pid}_thorough.txt 2>$out/check_${pid}_thorough.err; echo "exit=$? (tier thorough, restricted to the harnesses the native sweep flagged: $hits)" >> $out/check_${pid}_thorough.txt)
-    if grep -q "^VIOLATION" $out/check_${pid}_thorough.txt; then cp $out/check_${pid}_thorough.txt $out/check_$pid.txt; fi
-  fi
-fi
-if [ -z "$hits" ] || { ! grep -q "^VIOLATION" $out/check_$pid.txt && grep -q "no obligation was generated" $out/check_$pid.txt; }; then
-  (cd $V && python3 check.py $pid --tier $tier > $out/check_$pid.txt 2>$out/check_$pid.err; echo "exit=$? (tier $tier, full check; native sweep flagged nothing the restricted runs could decide)" >> $out/check_$pid.txt)
-fi
-0if [ -n "$hits" ]; then
-  (cd $V && VERIF_ONLY="$hits" python3 check.py $pid --tier $tier > $out/check_$pid.txt 2>$out/check_$pid.err; echo "exit=$? (tier $tier, restricted to the harnesses the native sweep flagged: $hits)" >> $out/check_$pid.txt)
-  if ! grep -q "^VIOLATION" $out/check_$pid.txt && [ "$tier" = quick ]; then
-    # the flagged harnesses may belong to the thorough tier only (larger bounds, slow ones)
-    (cd $V && VERIF_ONLY="$hits" python3 check.py $pid --tier thorough > $out/check_${pid}_thorough.txt 2>$out/check_${pid}_thorough.err; echo "exit=$? (tier thorough, restricted to the harnesses the native sweep flagged: $hits)" >> $out/check_${pid}_thorough.txt)
-    if grep -q "^VIOLATION" $out/check_${pid}_thorough.txt; then cp $out/check_${pid}_thorough.txt $out/check_$pid.txt; fi
-  fi
-fi
-if [ -z "$hits" ] || { ! grep -q "^VIOLATION" $out/check_$pid.txt && grep -q "no obligation was generated" $out/check_$pid.txt; }; then
-  (cd $V && python3 check.py $pid --tier $tier > $out/check_$pid.txt 2>$out/check_$pid.err; echo "exit=$? (tier $tier, full check; native sweep flagged nothing the restricted runs could decide)" >> $out/check_$pid.txt)
-fi
-0if [ -n "$hits" ]; then
-  (cd $V && VERIF_ONLY="$hits" python3 check.py $pid --tier $tier > $out/check_$pid.txt 2>$out/check_$pid.err; echo "exit=$? (tier $tier, restricted to the harnesses the native sweep flagged: $hits)" >> $out/check_$pid.txt)
-  if ! grep -q "^VIOLATION" $out/check_$pid.txt && [ "$tier" = quick ]; then
-    # the flagged harnesses may belong to the thorough tier only (larger bounds, slow ones)
-    (cd $V && VERIF_ONLY="$hits" python3 check.py $pid --tier thorough > $out/check_${pid}_thorough.txt 2>$out/check_${pid}_thorough.err; echo "exit=$? (tier thorough, restricted to the harnesses the native sweep flagged: $hits)" >> $out/check_${pid}_thorough.txt)
-    if grep -q "^VIOLATION" $out/check_${pid}_thorough.txt; then cp $out/check_${pid}_thorough.txt $out/check_$pid.txt; fi
-  fi
-fi
-if [ -z "$hits" ] || { ! grep -q "^VIOLATION" $out/check_$pid.txt && grep -q "no obligation was generated" $out/check_$pid.txt; }; then
-  (cd $V && python3 check.py $pid --tier $tier > $out/check_$pid.txt 2>$out/check_$pid.err; echo "exit=$? (tier $tier, full check; native sweep flagged nothing the restricted runs could decide)" >> $out/check_$pid.txt)
-fi
-0if [ -n "$hits" ]; then
-  (cd $V && VERIF_ONLY="$hits" python3 check.py $pid --tier $tier > $out/check_$pid.txt 2>$out/check_$pid.err; echo "exit=$? (tier $tier, restricted to the harnesses the native sweep flagged: $hits)" >> $out/check_$pid.txt)
-  if ! grep -q "^VIOLATION" $out/check_$pid.txt && [ "$tier" = quick ]; then
-    # the flagged harnesses may belong to the thorough tier only (larger bounds, slow ones)
-    (cd $V && VERIF_ONLY="$hits" python3 check.py $pid --tier thorough > $out/check_${pid}_thorough.txt 2>$out/check_${pid}_thorough.err; echo "exit=$? (tier thorough, restricted to the harnesses the native sweep flagged: $hits)" >> $out/check_${pid}_thorough.txt)
-    if grep -q "^VIOLATION" $out/check_${pid}_thorough.txt; then cp $out/check_${pid}_thorough.txt $out/check_$pid.txt; fi
-  fi
-fi
-if [ -z "$hits" ] || { ! grep -q "^VIOLATION" $out/check_$pid.txt && grep -q "no obligation was generated" $out/check_$pid.txt; }; then
-  (cd $V && python3 check.py $pid --tier $tier > $out/check_$pid.txt 2>$out/check_$pid.err; echo "exit=$? (tier $tier, full check; native sweep flagged nothing the restricted runs could decide)" >> $out/check_$pid.txt)
-fi
-0if [ -n "$hits" ]; then
-  (cd $V && VERIF_ONLY="$hits" python3 check.py $pid --tier $tier > $out/check_$pid.txt 2>$out/check_$pid.err; echo "exit=$? (tier $tier, restricted to the harnesses the native sweep flagged: $hits)" >> $out/check_$pid.txt)
-  if ! grep -q "^VIOLATION" $out/check_$pid.txt && [ "$tier" = quick ]; then
-    # the flagged harnesses may belong to the thorough tier only (larger bounds, slow ones)
-    (cd $V && VERIF_ONLY="$hits" python3 check.py $pid --tier thorough > $out/check_${pid}_thorough.txt 2>$out/check_${pid}_thorough.err; echo "exit=$? (tier thorough, restricted to the harnesses the native sweep flagged: $hits)" >> $out/check_${pid}_thorough.txt)
-    if grep -q "^VIOLATION" $out/check_${pid}_thorough.txt; then cp $out/check_${pid}_thorough.txt $out/check_$pid.txt; fi
-  fi
-fi
-if [ -z "$hits" ] || { ! grep -q "^VIOLATION" $out/check_$pid.txt && grep -q "no obligation was generated" $out/check_$pid.txt; }; then
-  (cd $V && python3 check.py $pid --tier $tier > $out/check_$pid.txt 2>$out/check_$pid.err; echo "exit=$? (tier $tier, full check; native sweep flagged nothing the restricted runs could decide)" >> $out/check_$pid.txt)
-fi
-}if [ -n "$hits" ]; then
-  (cd $V && VERIF_ONLY="$hits" python3 check.py $pid --tier $tier > $out/check_$pid.txt 2>$out/check_$pid.err; echo "exit=$? (tier $tier, restricted to the harnesses the native sweep flagged: $hits)" >> $out/check_$pid.txt)
-  if ! grep -q "^VIOLATION" $out/check_$pid.txt && [ "$tier" = quick ]; then
-    # the flagged harnesses may belong to the thorough tier only (larger bounds, slow ones)
-    (cd $V && VERIF_ONLY="$hits" python3 check.py $pid --tier thorough > $out/check_${pid}_thorough.txt 2>$out/check_${pid}_thorough.err; echo "exit=$? (tier thorough, restricted to the harnesses the native sweep flagged: $hits)" >> $out/check_${pid}_thorough.txt)
-    if grep -q "^VIOLATION" $out/check_${pid}_thorough.txt; then cp $out/check_${pid}_thorough.txt $out/check_$pid.txt; fi
-  fi
-fi
-if [ -z "$hits" ] || { ! grep -q "^VIOLATION" $out/check_$pid.txt && grep -q "no obligation was generated" $out/check_$pid.txt; }; then
-  (cd $V && python3 check.py $pid --tier $tier > $out/check_$pid.txt 2>$out/check_$pid.err; echo "exit=$? (tier $tier, full check; native sweep flagged nothing the restricted runs could decide)" >> $out/check_$pid.txt)
-fi
- if [ -n "$hits" ]; then
-  (cd $V && VERIF_ONLY="$hits" python3 check.py $pid --tier $tier > $out/check_$pid.txt 2>$out/check_$pid.err; echo "exit=$? (tier $tier, restricted to the harnesses the native sweep flagged: $hits)" >> $out/check_$pid.txt)
-  if ! grep -q "^VIOLATION" $out/check_$pid.txt && [ "$tier" = quick ]; then
-    # the flagged harnesses may belong to the thorough tier only (larger bounds, slow ones)
-    (cd $V && VERIF_ONLY="$hits" python3 check.py $pid --tier thorough > $out/check_${pid}_thorough.txt 2>$out/check_${pid}_thorough.err; echo "exit=$? (tier thorough, restricted to the harnesses the native sweep flagged: $hits)" >> $out/check_${pid}_thorough.txt)
-    if grep -q "^VIOLATION" $out/check_${pid}_thorough.txt; then cp $out/check_${pid}_thorough.txt $out/check_$pid.txt; fi
-  fi
-fi
-if [ -z "$hits" ] || { ! grep -q "^VIOLATION" $out/check_$pid.txt && grep -q "no obligation was generated" $out/check_$pid.txt; }; then
-  (cd $V && python3 check.py $pid --tier $tier > $out/check_$pid.txt 2>$out/check_$pid.err; echo "exit=$? (tier $tier, full check; native sweep flagged nothing the restricted runs could decide)" >> $out/check_$pid.txt)
-fi
->if [ -n "$hits" ]; then
-  (cd $V && VERIF_ONLY="$hits" python3 check.py $pid --tier $tier > $out/check_$pid.txt 2>$out/check_$pid.err; echo "exit=$? (tier $tier, restricted to the harnesses the native sweep flagged: $hits)" >> $out/check_$pid.txt)
-  if ! grep -q "^VIOLATION" $out/check_$pid.txt && [ "$tier" = quick ]; then
-    # the flagged harnesses may belong to the thorough tier only (larger bounds, slow ones)
-    (cd $V && VERIF_ONLY="$hits" python3 check.py $pid --tier thorough > $out/check_${pid}_thorough.txt 2>$out/check_${pid}_thorough.err; echo "exit=$? (tier thorough, restricted to the harnesses the native sweep flagged: $hits)" >> $out/check_${pid}_thorough.txt)
-    if grep -q "^VIOLATION" $out/check_${pid}_thorough.txt; then cp $out/check_${pid}_thorough.txt $out/check_$pid.txt; fi
-  fi
-fi
-if [ -z "$hits" ] || { ! grep -q "^VIOLATION" $out/check_$pid.txt && grep -q "no obligation was generated" $out/check_$pid.txt; }; then
-  (cd $V && python3 check.py $pid --tier $tier > $out/check_$pid.txt 2>$out/check_$pid.err; echo "exit=$? (tier $tier, full check; native sweep flagged nothing the restricted runs could decide)" >> $out/check_$pid.txt)
-fi
- if [ -n "$hits" ]; then
-  (cd $V && VERIF_ONLY="$hits" python3 check.py $pid --tier $tier > $out/check_$pid.txt 2>$out/check_$pid.err; echo "exit=$? (tier $tier, restricted to the harnesses the native sweep flagged: $hits)" >> $out/check_$pid.txt)
-  if ! grep -q "^VIOLATION" $out/check_$pid.txt && [ "$tier" = quick ]; then
-    # the flagged harnesses may belong to the thorough tier only (larger bounds, slow ones)
-    (cd $V && VERIF_ONLY="$hits" python3 check.py $pid --tier thorough > $out/check_${pid}_thorough.txt 2>$out/check_${pid}_thorough.err; echo "exit=$? (tier thorough, restricted to the harnesses the native sweep flagged: $hits)" >> $out/check_${pid}_thorough.txt)
-    if grep -q "^VIOLATION" $out/check_${pid}_thorough.txt; then cp $out/check_${pid}_thorough.txt $out/check_$pid.txt; fi
-  fi
-fi
-if [ -z "$hits" ] || { ! grep -q "^VIOLATION" $out/check_$pid.txt && grep -q "no obligation was generated" $out/check_$pid.txt; }; then
-  (cd $V && python3 check.py $pid --tier $tier > $out/check_$pid.txt 2>$out/check_$pid.err; echo "exit=$? (tier $tier, full check; native sweep flagged nothing the restricted runs could decide)" >> $out/check_$pid.txt)
-fi
-$if [ -n "$hits" ]; then
-  (cd $V && VERIF_ONLY="$hits" python3 check.py $pid --tier $tier > $out/check_$pid.txt 2>$out/check_$pid.err; echo "exit=$? (tier $tier, restricted to the harnesses the native sweep flagged: $hits)" >> $out/check_$pid.txt)
-  if ! grep -q "^VIOLATION" $out/check_$pid.txt && [ "$tier" = quick ]; then
-    # the flagged harnesses may belong to the thorough tier only (larger bounds, slow ones)
-    (cd $V && VERIF_ONLY="$hits" python3 check.py $pid --tier thorough > $out/check_${pid}_thorough.txt 2>$out/check_${pid}_thorough.err; echo "exit=$? (tier thorough, restricted to the harnesses the native sweep flagged: $hits)" >> $out/check_${pid}_thorough.txt)
-    if grep -q "^VIOLATION" $out/check_${pid}_thorough.txt; then cp $out/check_${pid}_thorough.txt $out/check_$pid.txt; fi
-  fi
-fi
-if [ -z "$hits" ] || { ! grep -q "^VIOLATION" $out/check_$pid.txt && grep -q "no obligation was generated" $out/check_$pid.txt; }; then
-  (cd $V && python3 check.py $pid --tier $tier > $out/check_$pid.txt 2>$out/check_$pid.err; echo "exit=$? (tier $tier, full check; native sweep flagged nothing the restricted runs could decide)" >> $out/check_$pid.txt)
-fi
-oif [ -n "$hits" ]; then
-  (cd $V && VERIF_ONLY="$hits" python3 check.py $pid --tier $tier > $out/check_$pid.txt 2>$out/check_$pid.err; echo "exit=$? (tier $tier, restricted to the harnesses the native sweep flagged: $hits)" >> $out/check_$pid.txt)
-  if ! grep -q "^VIOLATION" $out/check_$pid.txt && [ "$tier" = quick ]; then
-    # the flagged harnesses may belong to the thorough tier only (larger bounds, slow ones)
-    (cd $V && VERIF_ONLY="$hits" python3 check.py $pid --tier thorough > $out/check_${pid}_thorough.txt 2>$out/check_${pid}_thorough.err; echo "exit=$? (tier thorough, restricted to the harnesses the native sweep flagged: $hits)" >> $out/check_${pid}_thorough.txt)
-    if grep -q "^VIOLATION" $out/check_${pid}_thorough.txt; then cp $out/check_${pid}_thorough.txt $out/check_$pid.txt; fi
-  fi
-fi
-if [ -z "$hits" ] || { ! grep -q "^VIOLATION" $out/check_$pid.txt && grep -q "no obligation was generated" $out/check_$pid.txt; }; then
-  (cd $V && python3 check.py $pid --tier $tier > $out/check_$pid.txt 2>$out/check_$pid.err; echo "exit=$? (tier $tier, full check; native sweep flagged nothing the restricted runs could decide)" >> $out/check_$pid.txt)
-fi
-uif [ -n "$hits" ]; then
-  (cd $V && VERIF_ONLY="$hits" python3 check.py $pid --tier $tier > $out/check_$pid.txt 2>$out/check_$pid.err; echo "exit=$? (tier $tier, restricted to the harnesses the native sweep flagged: $hits)" >> $out/check_$pid.txt)
-  if ! grep -q "^VIOLATION" $out/check_$pid.txt && [ "$tier" = quick ]; then
-    # the flagged harnesses may belong to the thorough tier only (larger bounds, slow ones)
-    (cd $V && VERIF_ONLY="$hits" python3 check.py $pid --tier thorough > $out/check_${pid}_thorough.txt 2>$out/check_${pid}_thorough.err; echo "exit=$? (tier thorough, restricted to the harnesses the native sweep flagged: $hits)" >> $out/check_${pid}_thorough.txt)
-    if grep -q "^VIOLATION" $out/check_${pid}_thorough.txt; then cp $out/check_${pid}_thorough.txt $out/check_$pid.txt; fi
-  fi
-fi
-if [ -z "$hits" ] || { ! grep -q "^VIOLATION" $out/check_$pid.txt && grep -q "no obligation was generated" $out/check_$pid.txt; }; then
-  (cd $V && python3 check.py $pid --tier $tier > $out/check_$pid.txt 2>$out/check_$pid.err; echo "exit=$? (tier $tier, full check; native sweep flagged nothing the restricted runs could decide)" >> $out/check_$pid.txt)
-fi
-tif [ -n "$hits" ]; then
-  (cd $V && VERIF_ONLY="$hits" python3 check.py $pid --tier $tier > $out/check_$pid.txt 2>$out/check_$pid.err; echo "exit=$? (tier $tier, restricted to the harnesses the native sweep flagged: $hits)" >> $out/check_$pid.txt)
-  if ! grep -q "^VIOLATION" $out/check_$pid.txt && [ "$tier" = quick ]; then
-    # the flagged harnesses may belong to the thorough tier only (larger bounds, slow ones)
-    (cd $V && VERIF_ONLY="$hits" python3 check.py $pid --tier thorough > $out/check_${pid}_thorough.txt 2>$out/check_${pid}_thorough.err; echo "exit=$? (tier thorough, restricted to the harnesses the native sweep flagged: $hits)" >> $out/check_${pid}_thorough.txt)
-    if grep -q "^VIOLATION" $out/check_${pid}_thorough.txt; then cp $out/check_${pid}_thorough.txt $out/check_$pid.txt; fi
-  fi
-fi
-if [ -z "$hits" ] || { ! grep -q "^VIOLATION" $out/check_$pid.txt && grep -q "no obligation was generated" $out/check_$pid.txt; }; then
-  (cd $V && python3 check.py $pid --tier $tier > $out/check_$pid.txt 2>$out/check_$pid.err; echo "exit=$? (tier $tier, full check; native sweep flagged nothing the restricted runs could decide)" >> $out/check_$pid.txt)
-fi
-/if [ -n "$hits" ]; then
-  (cd $V && VERIF_ONLY="$hits" python3 check.py $pid --tier $tier > $out/check_$pid.txt 2>$out/check_$pid.err; echo "exit=$? (tier $tier, restricted to the harnesses the native sweep flagged: $hits)" >> $out/check_$pid.txt)
-  if ! grep -q "^VIOLATION" $out/check_$pid.txt && [ "$tier" = quick ]; then
-    # the flagged harnesses may belong to the thorough tier only (larger bounds, slow ones)
-    (cd $V && VERIF_ONLY="$hits" python3 check.py $pid --tier thorough > $out/check_${pid}_thorough.txt 2>$out/check_${pid}_thorough.err; echo "exit=$? (tier thorough, restricted to the harnesses the native sweep flagged: $hits)" >> $out/check_${pid}_thorough.txt)
-    if grep -q "^VIOLATION" $out/check_${pid}_thorough.txt; then cp $out/check_${pid}_thorough.txt $out/check_$pid.txt; fi
-  fi
-fi
-if [ -z "$hits" ] || { ! grep -q "^VIOLATION" $out/check_$pid.txt && grep -q "no obligation was generated" $out/check_$pid.txt; }; then
-  (cd $V && python3 check.py $pid --tier $tier > $out/check_$pid.txt 2>$out/check_$pid.err; echo "exit=$? (tier $tier, full check; native sweep flagged nothing the restricted runs could decide)" >> $out/check_$pid.txt)
-fi
-sif [ -n "$hits" ]; then
-  (cd $V && VERIF_ONLY="$hits" python3 check.py $pid --tier $tier > $out/check_$pid.txt 2>$out/check_$pid.err; echo "exit=$? (tier $tier, restricted to the harnesses the native sweep flagged: $hits)" >> $out/check_$pid.txt)
-  if ! grep -q "^VIOLATION" $out/check_$pid.txt && [ "$tier" = quick ]; then
-    # the flagged harnesses may belong to the thorough tier only (larger bounds, slow ones)
-    (cd $V && VERIF_ONLY="$hits" python3 check.py $pid --tier thorough > $out/check_${pid}_thorough.txt 2>$out/check_${pid}_thorough.err; echo "exit=$? (tier thorough, restricted to the harnesses the native sweep flagged: $hits)" >> $out/check_${pid}_thorough.txt)
-    if grep -q "^VIOLATION" $out/check_${pid}_thorough.txt; then cp $out/check_${pid}_thorough.txt $out/check_$pid.txt; fi
-  fi
-fi
-if [ -z "$hits" ] || { ! grep -q "^VIOLATION" $out/check_$pid.txt && grep -q "no obligation was generated" $out/check_$pid.txt; }; then
-  (cd $V && python3 check.py $pid --tier $tier > $out/check_$pid.txt 2>$out/check_$pid.err; echo "exit=$? (tier $tier, full check; native sweep flagged nothing the restricted runs could decide)" >> $out/check_$pid.txt)
-fi
-wif [ -n "$hits" ]; then
-  (cd $V && VERIF_ONLY="$hits" python3 check.py $pid --tier $tier > $out/check_$pid.txt 2>$out/check_$pid.err; echo "exit=$? (tier $tier, restricted to the harnesses the native sweep flagged: $hits)" >> $out/check_$pid.txt)
-  if ! grep -q "^VIOLATION" $out/check_$pid.txt && [ "$tier" = quick ]; then
-    # the flagged harnesses may belong to the thorough tier only (larger bounds, slow ones)
-    (cd $V && VERIF_ONLY="$hits" python3 check.py $pid --tier thorough > $out/check_${pid}_thorough.txt 2>$out/check_${pid}_thorough.err; echo "exit=$? (tier thorough, restricted to the harnesses the native sweep flagged: $hits)" >> $out/check_${pid}_thorough.txt)
-    if grep -q "^VIOLATION" $out/check_${pid}_thorough.txt; then cp $out/check_${pid}_thorough.txt $out/check_$pid.txt; fi
-  fi
-fi
-if [ -z "$hits" ] || { ! grep -q "^VIOLATION" $out/check_$pid.txt && grep -q "no obligation was generated" $out/check_$pid.txt; }; then
-  (cd $V && python3 check.py $pid --tier $tier > $out/check_$pid.txt 2>$out/check_$pid.err; echo "exit=$? (tier $tier, full check; native sweep flagged nothing the restricted runs could decide)" >> $out/check_$pid.txt)
-fi
-eif [ -n "$hits" ]; then
-  (cd $V && VERIF_ONLY="$hits" python3 check.py $pid --tier $tier > $out/check_$pid.txt 2>$out/check_$pid.err; echo "exit=$? (tier $tier, restricted to the harnesses the native sweep flagged: $hits)" >> $out/check_$pid.txt)
-  if ! grep -q "^VIOLATION" $out/check_$pid.txt && [ "$tier" = quick ]; then
-    # the flagged harnesses may belong to the thorough tier only (larger bounds, slow ones)
-    (cd $V && VERIF_ONLY="$hits" python3 check.py $pid --tier thorough > $out/check_${pid}_thorough.txt 2>$out/check_${pid}_thorough.err; echo "exit=$? (tier thorough, restricted to the harnesses the native sweep flagged: $hits)" >> $out/check_${pid}_thorough.txt)
-    if grep -q "^VIOLATION" $out/check_${pid}_thorough.txt; then cp $out/check_${pid}_thorough.txt $out/check_$pid.txt; fi
-  fi
-fi
-if [ -z "$hits" ] || { ! grep -q "^VIOLATION" $out/check_$pid.txt && grep -q "no obligation was generated" $out/check_$pid.txt; }; then
-  (cd $V && python3 check.py $pid --tier $tier > $out/check_$pid.txt 2>$out/check_$pid.err; echo "exit=$? (tier $tier, full check; native sweep flagged nothing the restricted runs could decide)" >> $out/check_$pid.txt)
-fi
-eif [ -n "$hits" ]; then
-  (cd $V && VERIF_ONLY="$hits" python3 check.py $pid --tier $tier > $out/check_$pid.txt 2>$out/check_$pid.err; echo "exit=$? (tier $tier, restricted to the harnesses the native sweep flagged: $hits)" >> $out/check_$pid.txt)
-  if ! grep -q "^VIOLATION" $out/check_$pid.txt && [ "$tier" = quick ]; then
-    # the flagged harnesses may belong to the thorough tier only (larger bounds, slow ones)
-    (cd $V && VERIF_ONLY="$hits" python3 check.py $pid --tier thorough > $out/check_${pid}_thorough.txt 2>$out/check_${pid}_thorough.err; echo "exit=$? (tier thorough, restricted to the harnesses the native sweep flagged: $hits)" >> $out/check_${pid}_thorough.txt)
-    if grep -q "^VIOLATION" $out/check_${pid}_thorough.txt; then cp $out/check_${pid}_thorough.txt $out/check_$pid.txt; fi
-  fi
-fi
-if [ -z "$hits" ] || { ! grep -q "^VIOLATION" $out/check_$pid.txt && grep -q "no obligation was generated" $out/check_$pid.txt; }; then
-  (cd $V && python3 check.py $pid --tier $tier > $out/check_$pid.txt 2>$out/check_$pid.err; echo "exit=$? (tier $tier, full check; native sweep flagged nothing the restricted runs could decide)" >> $out/check_$pid.txt)
-fi
-pif [ -n "$hits" ]; then
-  (cd $V && VERIF_ONLY="$hits" python3 check.py $pid --tier $tier > $out/check_$pid.txt 2>$out/check_$pid.err; echo "exit=$? (tier $tier, restricted to the harnesses the native sweep flagged: $hits)" >> $out/check_$pid.txt)
-  if ! grep -q "^VIOLATION" $out/check_$pid.txt && [ "$tier" = quick ]; then
-    # the flagged harnesses may belong to the thorough tier only (larger bounds, slow ones)
-    (cd $V && VERIF_ONLY="$hits" python3 check.py $pid --tier thorough > $out/check_${pid}_thorough.txt 2>$out/check_${pid}_thorough.err; echo "exit=$? (tier thorough, restricted to the harnesses the native sweep flagged: $hits)" >> $out/check_${pid}_thorough.txt)
-    if grep -q "^VIOLATION" $out/check_${pid}_thorough.txt; then cp $out/check_${pid}_thorough.txt $out/check_$pid.txt; fi
-  fi
-fi
-if [ -z "$hits" ] || { ! grep -q "^VIOLATION" $out/check_$pid.txt && grep -q "no obligation was generated" $out/check_$pid.txt; }; then
-  (cd $V && python3 check.py $pid --tier $tier > $out/check_$pid.txt 2>$out/check_$pid.err; echo "exit=$? (tier $tier, full check; native sweep flagged nothing the restricted runs could decide)" >> $out/check_$pid.txt)
-fi
-.if [ -n "$hits" ]; then
-  (cd $V && VERIF_ONLY="$hits" python3 check.py $pid --tier $tier > $out/check_$pid.txt 2>$out/check_$pid.err; echo "exit=$? (tier $tier, restricted to the harnesses the native sweep flagged: $hits)" >> $out/check_$pid.txt)
-  if ! grep -q "^VIOLATION" $out/check_$pid.txt && [ "$tier" = quick ]; then
-    # the flagged harnesses may belong to the thorough tier only (larger bounds, slow ones)
-    (cd $V && VERIF_ONLY="$hits" python3 check.py $pid --tier thorough > $out/check_${pid}_thorough.txt 2>$out/check_${pid}_thorough.err; echo "exit=$? (tier thorough, restricted to the harnesses the native sweep flagged: $hits)" >> $out/check_${pid}_thorough.txt)
-    if grep -q "^VIOLATION" $out/check_${pid}_thorough.txt; then cp $out/check_${pid}_thorough.txt $out/check_$pid.txt; fi
-  fi
-fi
-if [ -z "$hits" ] || { ! grep -q "^VIOLATION" $out/check_$pid.txt && grep -q "no obligation was generated" $out/check_$pid.txt; }; then
-  (cd $V && python3 check.py $pid --tier $tier > $out/check_$pid.txt 2>$out/check_$pid.err; echo "exit=$? (tier $tier, full check; native sweep flagged nothing the restricted runs could decide)" >> $out/check_$pid.txt)
-fi
-tif [ -n "$hits" ]; then
-  (cd $V && VERIF_ONLY="$hits" python3 check.py $pid --tier $tier > $out/check_$pid.txt 2>$out/check_$pid.err; echo "exit=$? (tier $tier, restricted to the harnesses the native sweep flagged: $hits)" >> $out/check_$pid.txt)
-  if ! grep -q "^VIOLATION" $out/check_$pid.txt && [ "$tier" = quick ]; then
-    # the flagged harnesses may belong to the thorough tier only (larger bounds, slow ones)
-    (cd $V && VERIF_ONLY="$hits" python3 check.py $pid --tier thorough > $out/check_${pid}_thorough.txt 2>$out/check_${pid}_thorough.err; echo "exit=$? (tier thorough, restricted to the harnesses the native sweep flagged: $hits)" >> $out/check_${pid}_thorough.txt)
-    if grep -q "^VIOLATION" $out/check_${pid}_thorough.txt; then cp $out/check_${pid}_thorough.txt $out/check_$pid.txt; fi
-  fi
-fi
-if [ -z "$hits" ] || { ! grep -q "^VIOLATION" $out/check_$pid.txt && grep -q "no obligation was generated" $out/check_$pid.txt; }; then
-  (cd $V && python3 check.py $pid --tier $tier > $out/check_$pid.txt 2>$out/check_$pid.err; echo "exit=$? (tier $tier, full check; native sweep flagged nothing the restricted runs could decide)" >> $out/check_$pid.txt)
-fi
-xif [ -n "$hits" ]; then
-  (cd $V && VERIF_ONLY="$hits" python3 check.py $pid --tier $tier > $out/check_$pid.txt 2>$out/check_$pid.err; echo "exit=$? (tier $tier, restricted to the harnesses the native sweep flagged: $hits)" >> $out/check_$pid.txt)
-  if ! grep -q "^VIOLATION" $out/check_$pid.txt && [ "$tier" = quick ]; then
-    # the flagged harnesses may belong to the thorough tier only (larger bounds, slow ones)
-    (cd $V && VERIF_ONLY="$hits" python3 check.py $pid --tier thorough > $out/check_${pid}_thorough.txt 2>$out/check_${pid}_thorough.err; echo "exit=$? (tier thorough, restricted to the harnesses the native sweep flagged: $hits)" >> $out/check_${pid}_thorough.txt)
-    if grep -q "^VIOLATION" $out/check_${pid}_thorough.txt; then cp $out/check_${pid}_thorough.txt $out/check_$pid.txt; fi
-  fi
-fi
-if [ -z "$hits" ] || { ! grep -q "^VIOLATION" $out/check_$pid.txt && grep -q "no obligation was generated" $out/check_$pid.txt; }; then
-  (cd $V && python3 check.py $pid --tier $tier > $out/check_$pid.txt 2>$out/check_$pid.err; echo "exit=$? (tier $tier, full check; native sweep flagged nothing the restricted runs could decide)" >> $out/check_$pid.txt)
-fi
-tif [ -n "$hits" ]; then
-  (cd $V && VERIF_ONLY="$hits" python3 check.py $pid --tier $tier > $out/check_$pid.txt 2>$out/check_$pid.err; echo "exit=$? (tier $tier, restricted to the harnesses the native sweep flagged: $hits)" >> $out/check_$pid.txt)
-  if ! grep -q "^VIOLATION" $out/check_$pid.txt && [ "$tier" = quick ]; then
-    # the flagged harnesses may belong to the thorough tier only (larger bounds, slow ones)
-    (cd $V && VERIF_ONLY="$hits" python3 check.py $pid --tier thorough > $out/check_${pid}_thorough.txt 2>$out/check_${pid}_thorough.err; echo "exit=$? (tier thorough, restricted to the harnesses the native sweep flagged: $hits)" >> $out/check_${pid}_thorough.txt)
-    if grep -q "^VIOLATION" $out/check_${pid}_thorough.txt; then cp $out/check_${pid}_thorough.txt $out/check_$pid.txt; fi
-  fi
-fi
-if [ -z "$hits" ] || { ! grep -q "^VIOLATION" $out/check_$pid.txt && grep -q "no obligation was generated" $out/check_$pid.txt; }; then
-  (cd $V && python3 check.py $pid --tier $tier > $out/check_$pid.txt 2>$out/check_$pid.err; echo "exit=$? (tier $tier, full check; native sweep flagged nothing the restricted runs could decide)" >> $out/check_$pid.txt)
-fi
- if [ -n "$hits" ]; then
-  (cd $V && VERIF_ONLY="$hits" python3 check.py $pid --tier $tier > $out/check_$pid.txt 2>$out/check_$pid.err; echo "exit=$? (tier $tier, restricted to the harnesses the native sweep flagged: $hits)" >> $out/check_$pid.txt)
-  if ! grep -q "^VIOLATION" $out/check_$pid.txt && [ "$tier" = quick ]; then
-    # the flagged harnesses may belong to the thorough tier only (larger bounds, slow ones)
-    (cd $V && VERIF_ONLY="$hits" python3 check.py $pid --tier thorough > $out/check_${pid}_thorough.txt 2>$out/check_${pid}_thorough.err; echo "exit=$? (tier thorough, restricted to the harnesses the native sweep flagged: $hits)" >> $out/check_${pid}_thorough.txt)
-    if grep -q "^VIOLATION" $out/check_${pid}_thorough.txt; then cp $out/check_${pid}_thorough.txt $out/check_$pid.txt; fi
-  fi
-fi
-if [ -z "$hits" ] || { ! grep -q "^VIOLATION" $out/check_$pid.txt && grep -q "no obligation was generated" $out/check_$pid.txt; }; then
-  (cd $V && python3 check.py $pid --tier $tier > $out/check_$pid.txt 2>$out/check_$pid.err; echo "exit=$? (tier $tier, full check; native sweep flagged nothing the restricted runs could decide)" >> $out/check_$pid.txt)
-fi
-2if [ -n "$hits" ]; then
-  (cd $V && VERIF_ONLY="$hits" python3 check.py $pid --tier $tier > $out/check_$pid.txt 2>$out/check_$pid.err; echo "exit=$? (tier $tier, restricted to the harnesses the native sweep flagged: $hits)" >> $out/check_$pid.txt)
-  if ! grep -q "^VIOLATION" $out/check_$pid.txt && [ "$tier" = quick ]; then
-    # the flagged harnesses may belong to the thorough tier only (larger bounds, slow ones)
-    (cd $V && VERIF_ONLY="$hits" python3 check.py $pid --tier thorough > $out/check_${pid}_thorough.txt 2>$out/check_${pid}_thorough.err; echo "exit=$? (tier thorough, restricted to the harnesses the native sweep flagged: $hits)" >> $out/check_${pid}_thorough.txt)
-    if grep -q "^VIOLATION" $out/check_${pid}_thorough.txt; then cp $out/check_${pid}_thorough.txt $out/check_$pid.txt; fi
-  fi
-fi
-if [ -z "$hits" ] || { ! grep -q "^VIOLATION" $out/check_$pid.txt && grep -q "no obligation was generated" $out/check_$pid.txt; }; then
-  (cd $V && python3 check.py $pid --tier $tier > $out/check_$pid.txt 2>$out/check_$pid.err; echo "exit=$? (tier $tier, full check; native sweep flagged nothing the restricted runs could decide)" >> $out/check_$pid.txt)
-fi
->if [ -n "$hits" ]; then
-  (cd $V && VERIF_ONLY="$hits" python3 check.py $pid --tier $tier > $out/check_$pid.txt 2>$out/check_$pid.err; echo "exit=$? (tier $tier, restricted to the harnesses the native sweep flagged: $hits)" >> $out/check_$pid.txt)
-  if ! grep -q "^VIOLATION" $out/check_$pid.txt && [ "$tier" = quick ]; then
-    # the flagged harnesses may belong to the thorough tier only (larger bounds, slow ones)
-    (cd $V && VERIF_ONLY="$hits" python3 check.py $pid --tier thorough > $out/check_${pid}_thorough.txt 2>$out/check_${pid}_thorough.err; echo "exit=$? (tier thorough, restricted to the harnesses the native sweep flagged: $hits)" >> $out/check_${pid}_thorough.txt)
-    if grep -q "^VIOLATION" $out/check_${pid}_thorough.txt; then cp $out/check_${pid}_thorough.txt $out/check_$pid.txt; fi
-  fi
-fi
-if [ -z "$hits" ] || { ! grep -q "^VIOLATION" $out/check_$pid.txt && grep -q "no obligation was generated" $out/check_$pid.txt; }; then
-  (cd $V && python3 check.py $pid --tier $tier > $out/check_$pid.txt 2>$out/check_$pid.err; echo "exit=$? (tier $tier, full check; native sweep flagged nothing the restricted runs could decide)" >> $out/check_$pid.txt)
-fi
-$if [ -n "$hits" ]; then
-  (cd $V && VERIF_ONLY="$hits" python3 check.py $pid --tier $tier > $out/check_$pid.txt 2>$out/check_$pid.err; echo "exit=$? (tier $tier, restricted to the harnesses the native sweep flagged: $hits)" >> $out/check_$pid.txt)
-  if ! grep -q "^VIOLATION" $out/check_$pid.txt && [ "$tier" = quick ]; then
-    # the flagged harnesses may belong to the thorough tier only (larger bounds, slow ones)
-    (cd $V && VERIF_ONLY="$hits" python3 check.py $pid --tier thorough > $out/check_${pid}_thorough.txt 2>$out/check_${pid}_thorough.err; echo "exit=$? (tier thorough, restricted to the harnesses the native sweep flagged: $hits)" >> $out/check_${pid}_thorough.txt)
-    if grep -q "^VIOLATION" $out/check_${pid}_thorough.txt; then cp $out/check_${pid}_thorough.txt $out/check_$pid.txt; fi
-  fi
-fi
-if [ -z "$hits" ] || { ! grep -q "^VIOLATION" $out/check_$pid.txt && grep -q "no obligation was generated" $out/check_$pid.txt; }; then
-  (cd $V && python3 check.py $pid --tier $tier > $out/check_$pid.txt 2>$out/check_$pid.err; echo "exit=$? (tier $tier, full check; native sweep flagged nothing the restricted runs could decide)" >> $out/check_$pid.txt)
-fi
-oif [ -n "$hits" ]; then
-  (cd $V && VERIF_ONLY="$hits" python3 check.py $pid --tier $tier > $out/check_$pid.txt 2>$out/check_$pid.err; echo "exit=$? (tier $tier, restricted to the harnesses the native sweep flagged: $hits)" >> $out/check_$pid.txt)
-  if ! grep -q "^VIOLATION" $out/check_$pid.txt && [ "$tier" = quick ]; then
-    # the flagged harnesses may belong to the thorough tier only (larger bounds, slow ones)
-    (cd $V && VERIF_ONLY="$hits" python3 check.py $pid --tier thorough > $out/check_${pid}_thorough.txt 2>$out/check_${pid}_thorough.err; echo "exit=$? (tier thorough, restricted to the harnesses the native sweep flagged: $hits)" >> $out/check_${pid}_thorough.txt)
-    if grep -q "^VIOLATION" $out/check_${pid}_thorough.txt; then cp $out/check_${pid}_thorough.txt $out/check_$pid.txt; fi
-  fi
-fi
-if [ -z "$hits" ] || { ! grep -q "^VIOLATION" $out/check_$pid.txt && grep -q "no obligation was generated" $out/check_$pid.txt; }; then
-  (cd $V && python3 check.py $pid --tier $tier > $out/check_$pid.txt 2>$out/check_$pid.err; echo "exit=$? (tier $tier, full check; native sweep flagged nothing the restricted runs could decide)" >> $out/check_$pid.txt)
-fi
-uif [ -n "$hits" ]; then
-  (cd $V && VERIF_ONLY="$hits" python3 check.py $pid --tier $tier > $out/check_$pid.txt 2>$out/check_$pid.err; echo "exit=$? (tier $tier, restricted to the harnesses the native sweep flagged: $hits)" >> $out/check_$pid.txt)
-  if ! grep -q "^VIOLATION" $out/check_$pid.txt && [ "$tier" = quick ]; then
-    # the flagged harnesses may belong to the thorough tier only (larger bounds, slow ones)
-    (cd $V && VERIF_ONLY="$hits" python3 check.py $pid --tier thorough > $out/check_${pid}_thorough.txt 2>$out/check_${pid}_thorough.err; echo "exit=$? (tier thorough, restricted to the harnesses the native sweep flagged: $hits)" >> $out/check_${pid}_thorough.txt)
-    if grep -q "^VIOLATION" $out/check_${pid}_thorough.txt; then cp $out/check_${pid}_thorough.txt $out/check_$pid.txt; fi
-  fi
-fi
-if [ -z "$hits" ] || { ! grep -q "^VIOLATION" $out/check_$pid.txt && grep -q "no obligation was generated" $out/check_$pid.txt; }; then
-  (cd $V && python3 check.py $pid --tier $tier > $out/check_$pid.txt 2>$out/check_$pid.err; echo "exit=$? (tier $tier, full check; native sweep flagged nothing the restricted runs could decide)" >> $out/check_$pid.txt)
-fi
-tif [ -n "$hits" ]; then
-  (cd $V && VERIF_ONLY="$hits" python3 check.py $pid --tier $tier > $out/check_$pid.txt 2>$out/check_$pid.err; echo "exit=$? (tier $tier, restricted to the harnesses the native sweep flagged: $hits)" >> $out/check_$pid.txt)
-  if ! grep -q "^VIOLATION" $out/check_$pid.txt && [ "$tier" = quick ]; then
-    # the flagged harnesses may belong to the thorough tier only (larger bounds, slow ones)
-    (cd $V && VERIF_ONLY="$hits" python3 check.py $pid --tier thorough > $out/check_${pid}_thorough.txt 2>$out/check_${pid}_thorough.err; echo "exit=$? (tier thorough, restricted to the harnesses the native sweep flagged: $hits)" >> $out/check_${pid}_thorough.txt)
-    if grep -q "^VIOLATION" $out/check_${pid}_thorough.txt; then cp $out/check_${pid}_thorough.txt $out/check_$pid.txt; fi
-  fi
-fi
-if [ -z "$hits" ] || { ! grep -q "^VIOLATION" $out/check_$pid.txt && grep -q "no obligation was generated" $out/check_$pid.txt; }; then
-  (cd $V && python3 check.py $pid --tier $tier > $out/check_$pid.txt 2>$out/check_$pid.err; echo "exit=$? (tier $tier, full check; native sweep flagged nothing the restricted runs could decide)" >> $out/check_$pid.txt)
-fi
-/if [ -n "$hits" ]; then
-  (cd $V && VERIF_ONLY="$hits" python3 check.py $pid --tier $tier > $out/check_$pid.txt 2>$out/check_$pid.err; echo "exit=$? (tier $tier, restricted to the harnesses the native sweep flagged: $hits)" >> $out/check_$pid.txt)
-  if ! grep -q "^VIOLATION" $out/check_$pid.txt && [ "$tier" = quick ]; then
-    # the flagged harnesses may belong to the thorough tier only (larger bounds, slow ones)
-    (cd $V && VERIF_ONLY="$hits" python3 check.py $pid --tier thorough > $out/check_${pid}_thorough.txt 2>$out/check_${pid}_thorough.err; echo "exit=$? (tier thorough, restricted to the harnesses the native sweep flagged: $hits)" >> $out/check_${pid}_thorough.txt)
-    if grep -q "^VIOLATION" $out/check_${pid}_thorough.txt; then cp $out/check_${pid}_thorough.txt $out/check_$pid.txt; fi
-  fi
-fi
-if [ -z "$hits" ] || { ! grep -q "^VIOLATION" $out/check_$pid.txt && grep -q "no obligation was generated" $out/check_$pid.txt; }; then
-  (cd $V && python3 check.py $pid --tier $tier > $out/check_$pid.txt 2>$out/check_$pid.err; echo "exit=$? (tier $tier, full check; native sweep flagged nothing the restricted runs could decide)" >> $out/check_$pid.txt)
-fi
-sif [ -n "$hits" ]; then
-  (cd $V && VERIF_ONLY="$hits" python3 check.py $pid --tier $tier > $out/check_$pid.txt 2>$out/check_$pid.err; echo "exit=$? (tier $tier, restricted to the harnesses the native sweep flagged: $hits)" >> $out/check_$pid.txt)
-  if ! grep -q "^VIOLATION" $out/check_$pid.txt && [ "$tier" = quick ]; then
-    # the flagged harnesses may belong to the thorough tier only (larger bounds, slow ones)
-    (cd $V && VERIF_ONLY="$hits" python3 check.py $pid --tier thorough > $out/check_${pid}_thorough.txt 2>$out/check_${pid}_thorough.err; echo "exit=$? (tier thorough, restricted to the harnesses the native sweep flagged: $hits)" >> $out/check_${pid}_thorough.txt)
-    if grep -q "^VIOLATION" $out/check_${pid}_thorough.txt; then cp $out/check_${pid}_thorough.txt $out/check_$pid.txt; fi
-  fi
-fi
-if [ -z "$hits" ] || { ! grep -q "^VIOLATION" $out/check_$pid.txt && grep -q "no obligation was generated" $out/check_$pid.txt; }; then
-  (cd $V && python3 check.py $pid --tier $tier > $out/check_$pid.txt 2>$out/check_$pid.err; echo "exit=$? (tier $tier, full check; native sweep flagged nothing the restricted runs could decide)" >> $out/check_$pid.txt)
-fi
-wif [ -n "$hits" ]; then
-  (cd $V && VERIF_ONLY="$hits" python3 check.py $pid --tier $tier > $out/check_$pid.txt 2>$out/check_$pid.err; echo "exit=$? (tier $tier, restricted to the harnesses the native sweep flagged: $hits)" >> $out/check_$pid.txt)
-  if ! grep -q "^VIOLATION" $out/check_$pid.txt && [ "$tier" = quick ]; then
-    # the flagged harnesses may belong to the thorough tier only (larger bounds, slow ones)
-    (cd $V && VERIF_ONLY="$hits" python3 check.py $pid --tier thorough > $out/check_${pid}_thorough.txt 2>$out/check_${pid}_thorough.err; echo "exit=$? (tier thorough, restricted to the harnesses the native sweep flagged: $hits)" >> $out/check_${pid}_thorough.txt)
-    if grep -q "^VIOLATION" $out/check_${pid}_thorough.txt; then cp $out/check_${pid}_thorough.txt $out/check_$pid.txt; fi
-  fi
-fi
-if [ -z "$hits" ] || { ! grep -q "^VIOLATION" $out/check_$pid.txt && grep -q "no obligation was generated" $out/check_$pid.txt; }; then
-  (cd $V && python3 check.py $pid --tier $tier > $out/check_$pid.txt 2>$out/check_$pid.err; echo "exit=$? (tier $tier, full check; native sweep flagged nothing the restricted runs could decide)" >> $out/check_$pid.txt)
-fi
-eif [ -n "$hits" ]; then
-  (cd $V && VERIF_ONLY="$hits" python3 check.py $pid --tier $tier > $out/check_$pid.txt 2>$out/check_$pid.err; echo "exit=$? (tier $tier, restricted to the harnesses the native sweep flagged: $hits)" >> $out/check_$pid.txt)
-  if ! grep -q "^VIOLATION" $out/check_$pid.txt && [ "$tier" = quick ]; then
-    # the flagged harnesses may belong to the thorough tier only (larger bounds, slow ones)
-    (cd $V && VERIF_ONLY="$hits" python3 check.py $pid --tier thorough > $out/check_${pid}_thorough.txt 2>$out/check_${pid}_thorough.err; echo "exit=$? (tier thorough, restricted to the harnesses the native sweep flagged: $hits)" >> $out/check_${pid}_thorough.txt)
-    if grep -q "^VIOLATION" $out/check_${pid}_thorough.txt; then cp $out/check_${pid}_thorough.txt $out/check_$pid.txt; fi
-  fi
-fi
-if [ -z "$hits" ] || { ! grep -q "^VIOLATION" $out/check_$pid.txt && grep -q "no obligation was generated" $out/check_$pid.txt; }; then
-  (cd $V && python3 check.py $pid --tier $tier > $out/check_$pid.txt 2>$out/check_$pid.err; echo "exit=$? (tier $tier, full check; native sweep flagged nothing the restricted runs could decide)" >> $out/check_$pid.txt)
-fi
-eif [ -n "$hits" ]; then
-  (cd $V && VERIF_ONLY="$hits" python3 check.py $pid --tier $tier > $out/check_$pid.txt 2>$out/check_$pid.err; echo "exit=$? (tier $tier, restricted to the harnesses the native sweep flagged: $hits)" >> $out/check_$pid.txt)
-  if ! grep -q "^VIOLATION" $out/check_$pid.txt && [ "$tier" = quick ]; then
-    # the flagged harnesses may belong to the thorough tier only (larger bounds, slow ones)
-    (cd $V && VERIF_ONLY="$hits" python3 check.py $pid --tier thorough > $out/check_${pid}_thorough.txt 2>$out/check_${pid}_thorough.err; echo "exit=$? (tier thorough, restricted to the harnesses the native sweep flagged: $hits)" >> $out/check_${pid}_thorough.txt)
-    if grep -q "^VIOLATION" $out/check_${pid}_thorough.txt; then cp $out/check_${pid}_thorough.txt $out/check_$pid.txt; fi
-  fi
-fi
-if [ -z "$hits" ] || { ! grep -q "^VIOLATION" $out/check_$pid.txt && grep -q "no obligation was generated" $out/check_$pid.txt; }; then
-  (cd $V && python3 check.py $pid --tier $tier > $out/check_$pid.txt 2>$out/check_$pid.err; echo "exit=$? (tier $tier, full check; native sweep flagged nothing the restricted runs could decide)" >> $out/check_$pid.txt)
-fi
-pif [ -n "$hits" ]; then
-  (cd $V && VERIF_ONLY="$hits" python3 check.py $pid --tier $tier > $out/check_$pid.txt 2>$out/check_$pid.err; echo "exit=$? (tier $tier, restricted to the harnesses the native sweep flagged: $hits)" >> $out/check_$pid.txt)
-  if ! grep -q "^VIOLATION" $out/check_$pid.txt && [ "$tier" = quick ]; then
-    # the flagged harnesses may belong to the thorough tier only (larger bounds, slow ones)
-    (cd $V && VERIF_ONLY="$hits" python3 check.py $pid --tier thorough > $out/check_${pid}_thorough.txt 2>$out/check_${pid}_thorough.err; echo "exit=$? (tier thorough, restricted to the harnesses the native sweep flagged: $hits)" >> $out/check_${pid}_thorough.txt)
-    if grep -q "^VIOLATION" $out/check_${pid}_thorough.txt; then cp $out/check_${pid}_thorough.txt $out/check_$pid.txt; fi
-  fi
-fi
-if [ -z "$hits" ] || { ! grep -q "^VIOLATION" $out/check_$pid.txt && grep -q "no obligation was generated" $out/check_$pid.txt; }; then
-  (cd $V && python3 check.py $pid --tier $tier > $out/check_$pid.txt 2>$out/check_$pid.err; echo "exit=$? (tier $tier, full check; native sweep flagged nothing the restricted runs could decide)" >> $out/check_$pid.txt)
-fi
-.if [ -n "$hits" ]; then
-  (cd $V && VERIF_ONLY="$hits" python3 check.py $pid --tier $tier > $out/check_$pid.txt 2>$out/check_$pid.err; echo "exit=$? (tier $tier, restricted to the harnesses the native sweep flagged: $hits)" >> $out/check_$pid.txt)
-  if ! grep -q "^VIOLATION" $out/check_$pid.txt && [ "$tier" = quick ]; then
-    # the flagged harnesses may belong to the thorough tier only (larger bounds, slow ones)
-    (cd $V && VERIF_ONLY="$hits" python3 check.py $pid --tier thorough > $out/check_${pid}_thorough.txt 2>$out/check_${pid}_thorough.err; echo "exit=$? (tier thorough, restricted to the harnesses the native sweep flagged: $hits)" >> $out/check_${pid}_thorough.txt)
-    if grep -q "^VIOLATION" $out/check_${pid}_thorough.txt; then cp $out/check_${pid}_thorough.txt $out/check_$pid.txt; fi
-  fi
-fi
-if [ -z "$hits" ] || { ! grep -q "^VIOLATION" $out/check_$pid.txt && grep -q "no obligation was generated" $out/check_$pid.txt; }; then
-  (cd $V && python3 check.py $pid --tier $tier > $out/check_$pid.txt 2>$out/check_$pid.err; echo "exit=$? (tier $tier, full check; native sweep flagged nothing the restricted runs could decide)" >> $out/check_$pid.txt)
-fi
-eif [ -n "$hits" ]; then
-  (cd $V && VERIF_ONLY="$hits" python3 check.py $pid --tier $tier > $out/check_$pid.txt 2>$out/check_$pid.err; echo "exit=$? (tier $tier, restricted to the harnesses the native sweep flagged: $hits)" >> $out/check_$pid.txt)
-  if ! grep -q "^VIOLATION" $out/check_$pid.txt && [ "$tier" = quick ]; then
-    # the flagged harnesses may belong to the thorough tier only (larger bounds, slow ones)
-    (cd $V && VERIF_ONLY="$hits" python3 check.py $pid --tier thorough > $out/check_${pid}_thorough.txt 2>$out/check_${pid}_thorough.err; echo "exit=$? (tier thorough, restricted to the harnesses the native sweep flagged: $hits)" >> $out/check_${pid}_thorough.txt)
-    if grep -q "^VIOLATION" $out/check_${pid}_thorough.txt; then cp $out/check_${pid}_thorough.txt $out/check_$pid.txt; fi
-  fi
-fi
-if [ -z "$hits" ] || { ! grep -q "^VIOLATION" $out/check_$pid.txt && grep -q "no obligation was generated" $out/check_$pid.txt; }; then
-  (cd $V && python3 check.py $pid --tier $tier > $out/check_$pid.txt 2>$out/check_$pid.err; echo "exit=$? (tier $tier, full check; native sweep flagged nothing the restricted runs could decide)" >> $out/check_$pid.txt)
-fi
-rif [ -n "$hits" ]; then
-  (cd $V && VERIF_ONLY="$hits" python3 check.py $pid --tier $tier > $out/check_$pid.txt 2>$out/check_$pid.err; echo "exit=$? (tier $tier, restricted to the harnesses the native sweep flagged: $hits)" >> $out/check_$pid.txt)
-  if ! grep -q "^VIOLATION" $out/check_$pid.txt && [ "$tier" = quick ]; then
-    # the flagged harnesses may belong to the thorough tier only (larger bounds, slow ones)
-    (cd $V && VERIF_ONLY="$hits" python3 check.py $pid --tier thorough > $out/check_${pid}_thorough.txt 2>$out/check_${pid}_thorough.err; echo "exit=$? (tier thorough, restricted to the harnesses the native sweep flagged: $hits)" >> $out/check_${pid}_thorough.txt)
-    if grep -q "^VIOLATION" $out/check_${pid}_thorough.txt; then cp $out/check_${pid}_thorough.txt $out/check_$pid.txt; fi
-  fi
-fi
-if [ -z "$hits" ] || { ! grep -q "^VIOLATION" $out/check_$pid.txt && grep -q "no obligation was generated" $out/check_$pid.txt; }; then
-  (cd $V && python3 check.py $pid --tier $tier > $out/check_$pid.txt 2>$out/check_$pid.err; echo "exit=$? (tier $tier, full check; native sweep flagged nothing the restricted runs could decide)" >> $out/check_$pid.txt)
-fi
-rif [ -n "$hits" ]; then
-  (cd $V && VERIF_ONLY="$hits" python3 check.py $pid --tier $tier > $out/check_$pid.txt 2>$out/check_$pid.err; echo "exit=$? (tier $tier, restricted to the harnesses the native sweep flagged: $hits)" >> $out/check_$pid.txt)
-  if ! grep -q "^VIOLATION" $out/check_$pid.txt && [ "$tier" = quick ]; then
-    # the flagged harnesses may belong to the thorough tier only (larger bounds, slow ones)
-    (cd $V && VERIF_ONLY="$hits" python3 check.py $pid --tier thorough > $out/check_${pid}_thorough.txt 2>$out/check_${pid}_thorough.err; echo "exit=$? (tier thorough, restricted to the harnesses the native sweep flagged: $hits)" >> $out/check_${pid}_thorough.txt)
-    if grep -q "^VIOLATION" $out/check_${pid}_thorough.txt; then cp $out/check_${pid}_thorough.txt $out/check_$pid.txt; fi
-  fi
-fi
-if [ -z "$hits" ] || { ! grep -q "^VIOLATION" $out/check_$pid.txt && grep -q "no obligation was generated" $out/check_$pid.txt; }; then
-  (cd $V && python3 check.py $pid --tier $tier > $out/check_$pid.txt 2>$out/check_$pid.err; echo "exit=$? (tier $tier, full check; native sweep flagged nothing the restricted runs could decide)" >> $out/check_$pid.txt)
-fi
-)if [ -n "$hits" ]; then
-  (cd $V && VERIF_ONLY="$hits" python3 check.py $pid --tier $tier > $out/check_$pid.txt 2>$out/check_$pid.err; echo "exit=$? (tier $tier, restricted to the harnesses the native sweep flagged: $hits)" >> $out/check_$pid.txt)
-  if ! grep -q "^VIOLATION" $out/check_$pid.txt && [ "$tier" = quick ]; then
-    # the flagged harnesses may belong to the thorough tier only (larger bounds, slow ones)
-    (cd $V && VERIF_ONLY="$hits" python3 check.py $pid --tier thorough > $out/check_${pid}_thorough.txt 2>$out/check_${pid}_thorough.err; echo "exit=$? (tier thorough, restricted to the harnesses the native sweep flagged: $hits)" >> $out/check_${pid}_thorough.txt)
-    if grep -q "^VIOLATION" $out/check_${pid}_thorough.txt; then cp $out/check_${pid}_thorough.txt $out/check_$pid.txt; fi
-  fi
-fi
-if [ -z "$hits" ] || { ! grep -q "^VIOLATION" $out/check_$pid.txt && grep -q "no obligation was generated" $out/check_$pid.txt; }; then
-  (cd $V && python3 check.py $pid --tier $tier > $out/check_$pid.txt 2>$out/check_$pid.err; echo "exit=$? (tier $tier, full check; native sweep flagged nothing the restricted runs could decide)" >> $out/check_$pid.txt)
-fi
-
-if [ -n "$hits" ]; then
-  (cd $V && VERIF_ONLY="$hits" python3 check.py $pid --tier $tier > $out/check_$pid.txt 2>$out/check_$pid.err; echo "exit=$? (tier $tier, restricted to the harnesses the native sweep flagged: $hits)" >> $out/check_$pid.txt)
-  if ! grep -q "^VIOLATION" $out/check_$pid.txt && [ "$tier" = quick ]; then
-    # the flagged harnesses may belong to the thorough tier only (larger bounds, slow ones)
-    (cd $V && VERIF_ONLY="$hits" python3 check.py $pid --tier thorough > $out/check_${pid}_thorough.txt 2>$out/check_${pid}_thorough.err; echo "exit=$? (tier thorough, restricted to the harnesses the native sweep flagged: $hits)" >> $out/check_${pid}_thorough.txt)
-    if grep -q "^VIOLATION" $out/check_${pid}_thorough.txt; then cp $out/check_${pid}_thorough.txt $out/check_$pid.txt; fi
-  fi
-fi
-if [ -z "$hits" ] || { ! grep -q "^VIOLATION" $out/check_$pid.txt && grep -q "no obligation was generated" $out/check_$pid.txt; }; then
-  (cd $V && python3 check.py $pid --tier $tier > $out/check_$pid.txt 2>$out/check_$pid.err; echo "exit=$? (tier $tier, full check; native sweep flagged nothing the restricted runs could decide)" >> $out/check_$pid.txt)
-fi
-hif [ -n "$hits" ]; then
-  (cd $V && VERIF_ONLY="$hits" python3 check.py $pid --tier $tier > $out/check_$pid.txt 2>$out/check_$pid.err; echo "exit=$? (tier $tier, restricted to the harnesses the native sweep flagged: $hits)" >> $out/check_$pid.txt)
-  if ! grep -q "^VIOLATION" $out/check_$pid.txt && [ "$tier" = quick ]; then
-    # the flagged harnesses may belong to the thorough tier only (larger bounds, slow ones)
-    (cd $V && VERIF_ONLY="$hits" python3 check.py $pid --tier thorough > $out/check_${pid}_thorough.txt 2>$out/check_${pid}_thorough.err; echo "exit=$? (tier thorough, restricted to the harnesses the native sweep flagged: $hits)" >> $out/check_${pid}_thorough.txt)
-    if grep -q "^VIOLATION" $out/check_${pid}_thorough.txt; then cp $out/check_${pid}_thorough.txt $out/check_$pid.txt; fi
-  fi
-fi
-if [ -z "$hits" ] || { ! grep -q "^VIOLATION" $out/check_$pid.txt && grep -q "no obligation was generated" $out/check_$pid.txt; }; then
-  (cd $V && python3 check.py $pid --tier $tier > $out/check_$pid.txt 2>$out/check_$pid.err; echo "exit=$? (tier $tier, full check; native sweep flagged nothing the restricted runs could decide)" >> $out/check_$pid.txt)
-fi
-iif [ -n "$hits" ]; then
-  (cd $V && VERIF_ONLY="$hits" python3 check.py $pid --tier $tier > $out/check_$pid.txt 2>$out/check_$pid.err; echo "exit=$? (tier $tier, restricted to the harnesses the native sweep flagged: $hits)" >> $out/check_$pid.txt)
-  if ! grep -q "^VIOLATION" $out/check_$pid.txt && [ "$tier" = quick ]; then
-    # the flagged harnesses may belong to the thorough tier only (larger bounds, slow ones)
-    (cd $V && VERIF_ONLY="$hits" python3 check.py $pid --tier thorough > $out/check_${pid}_thorough.txt 2>$out/check_${pid}_thorough.err; echo "exit=$? (tier thorough, restricted to the harnesses the native sweep flagged: $hits)" >> $out/check_${pid}_thorough.txt)
-    if grep -q "^VIOLATION" $out/check_${pid}_thorough.txt; then cp $out/check_${pid}_thorough.txt $out/check_$pid.txt; fi
-  fi
-fi
-if [ -z "$hits" ] || { ! grep -q "^VIOLATION" $out/check_$pid.txt && grep -q "no obligation was generated" $out/check_$pid.txt; }; then
-  (cd $V && python3 check.py $pid --tier $tier > $out/check_$pid.txt 2>$out/check_$pid.err; echo "exit=$? (tier $tier, full check; native sweep flagged nothing the restricted runs could decide)" >> $out/check_$pid.txt)
-fi
-tif [ -n "$hits" ]; then
-  (cd $V && VERIF_ONLY="$hits" python3 check.py $pid --tier $tier > $out/check_$pid.txt 2>$out/check_$pid.err; echo "exit=$? (tier $tier, restricted to the harnesses the native sweep flagged: $hits)" >> $out/check_$pid.txt)
-  if ! grep -q "^VIOLATION" $out/check_$pid.txt && [ "$tier" = quick ]; then
-    # the flagged harnesses may belong to the thorough tier only (larger bounds, slow ones)
-    (cd $V && VERIF_ONLY="$hits" python3 check.py $pid --tier thorough > $out/check_${pid}_thorough.txt 2>$out/check_${pid}_thorough.err; echo "exit=$? (tier thorough, restricted to the harnesses the native sweep flagged: $hits)" >> $out/check_${pid}_thorough.txt)
-    if grep -q "^VIOLATION" $out/check_${pid}_thorough.txt; then cp $out/check_${pid}_thorough.txt $out/check_$pid.txt; fi
-  fi
-fi
-if [ -z "$hits" ] || { ! grep -q "^VIOLATION" $out/check_$pid.txt && grep -q "no obligation was generated" $out/check_$pid.txt; }; then
-  (cd $V && python3 check.py $pid --tier $tier > $out/check_$pid.txt 2>$out/check_$pid.err; echo "exit=$? (tier $tier, full check; native sweep flagged nothing the restricted runs could decide)" >> $out/check_$pid.txt)
-fi
-sif [ -n "$hits" ]; then
-  (cd $V && VERIF_ONLY="$hits" python3 check.py $pid --tier $tier > $out/check_$pid.txt 2>$out/check_$pid.err; echo "exit=$? (tier $tier, restricted to the harnesses the native sweep flagged: $hits)" >> $out/check_$pid.txt)
-  if ! grep -q "^VIOLATION" $out/check_$pid.txt && [ "$tier" = quick ]; then
-    # the flagged harnesses may belong to the thorough tier only (larger bounds, slow ones)
-    (cd $V && VERIF_ONLY="$hits" python3 check.py $pid --tier thorough > $out/check_${pid}_thorough.txt 2>$out/check_${pid}_thorough.err; echo "exit=$? (tier thorough, restricted to the harnesses the native sweep flagged: $hits)" >> $out/check_${pid}_thorough.txt)
-    if grep -q "^VIOLATION" $out/check_${pid}_thorough.txt; then cp $out/check_${pid}_thorough.txt $out/check_$pid.txt; fi
-  fi
-fi
-if [ -z "$hits" ] || { ! grep -q "^VIOLATION" $out/check_$pid.txt && grep -q "no obligation was generated" $out/check_$pid.txt; }; then
-  (cd $V && python3 check.py $pid --tier $tier > $out/check_$pid.txt 2>$out/check_$pid.err; echo "exit=$? (tier $tier, full check; native sweep flagged nothing the restricted runs could decide)" >> $out/check_$pid.txt)
-fi
-=if [ -n "$hits" ]; then
-  (cd $V && VERIF_ONLY="$hits" python3 check.py $pid --tier $tier > $out/check_$pid.txt 2>$out/check_$pid.err; echo "exit=$? (tier $tier, restricted to the harnesses the native sweep flagged: $hits)" >> $out/check_$pid.txt)
-  if ! grep -q "^VIOLATION" $out/check_$pid.txt && [ "$tier" = quick ]; then
-    # the flagged harnesses may belong to the thorough tier only (larger bounds, slow ones)
-    (cd $V && VERIF_ONLY="$hits" python3 check.py $pid --tier thorough > $out/check_${pid}_thorough.txt 2>$out/check_${pid}_thorough.err; echo "exit=$? (tier thorough, restricted to the harnesses the native sweep flagged: $hits)" >> $out/check_${pid}_thorough.txt)
-    if grep -q "^VIOLATION" $out/check_${pid}_thorough.txt; then cp $out/check_${pid}_thorough.txt $out/check_$pid.txt; fi
-  fi
-fi
-if [ -z "$hits" ] || { ! grep -q "^VIOLATION" $out/check_$pid.txt && grep -q "no obligation was generated" $out/check_$pid.txt; }; then
-  (cd $V && python3 check.py $pid --tier $tier > $out/check_$pid.txt 2>$out/check_$pid.err; echo "exit=$? (tier $tier, full check; native sweep flagged nothing the restricted runs could decide)" >> $out/check_$pid.txt)
-fi
-$if [ -n "$hits" ]; then
-  (cd $V && VERIF_ONLY="$hits" python3 check.py $pid --tier $tier > $out/check_$pid.txt 2>$out/check_$pid.err; echo "exit=$? (tier $tier, restricted to the harnesses the native sweep flagged: $hits)" >> $out/check_$pid.txt)
-  if ! grep -q "^VIOLATION" $out/check_$pid.txt && [ "$tier" = quick ]; then
-    # the flagged harnesses may belong to the thorough tier only (larger bounds, slow ones)
-    (cd $V && VERIF_ONLY="$hits" python3 check.py $pid --tier thorough > $out/check_${pid}_thorough.txt 2>$out/check_${pid}_thorough.err; echo "exit=$? (tier thorough, restricted to the harnesses the native sweep flagged: $hits)" >> $out/check_${pid}_thorough.txt)
-    if grep -q "^VIOLATION" $out/check_${pid}_thorough.txt; then cp $out/check_${pid}_thorough.txt $out/check_$pid.txt; fi
-  fi
-fi
-if [ -z "$hits" ] || { ! grep -q "^VIOLATION" $out/check_$pid.txt && grep -q "no obligation was generated" $out/check_$pid.txt; }; then
-  (cd $V && python3 check.py $pid --tier $tier > $out/check_$pid.txt 2>$out/check_$pid.err; echo "exit=$? (tier $tier, full check; native sweep flagged nothing the restricted runs could decide)" >> $out/check_$pid.txt)
-fi
-(if [ -n "$hits" ]; then
-  (cd $V && VERIF_ONLY="$hits" python3 check.py $pid --tier $tier > $out/check_$pid.txt 2>$out/check_$pid.err; echo "exit=$? (tier $tier, restricted to the harnesses the native sweep flagged: $hits)" >> $out/check_$pid.txt)
-  if ! grep -q "^VIOLATION" $out/check_$pid.txt && [ "$tier" = quick ]; then
-    # the flagged harnesses may belong to the thorough tier only (larger bounds, slow ones)
-    (cd $V && VERIF_ONLY="$hits" python3 check.py $pid --tier thorough > $out/check_${pid}_thorough.txt 2>$out/check_${pid}_thorough.err; echo "exit=$? (tier thorough, restricted to the harnesses the native sweep flagged: $hits)" >> $out/check_${pid}_thorough.txt)
-    if grep -q "^VIOLATION" $out/check_${pid}_thorough.txt; then cp $out/check_${pid}_thorough.txt $out/check_$pid.txt; fi
-  fi
-fi
-if [ -z "$hits" ] || { ! grep -q "^VIOLATION" $out/check_$pid.txt && grep -q "no obligation was generated" $out/check_$pid.txt; }; then
-  (cd $V && python3 check.py $pid --tier $tier > $out/check_$pid.txt 2>$out/check_$pid.err; echo "exit=$? (tier $tier, full check; native sweep flagged nothing the restricted runs could decide)" >> $out/check_$pid.txt)
-fi
-gif [ -n "$hits" ]; then
-  (cd $V && VERIF_ONLY="$hits" python3 check.py $pid --tier $tier > $out/check_$pid.txt 2>$out/check_$pid.err; echo "exit=$? (tier $tier, restricted to the harnesses the native sweep flagged: $hits)" >> $out/check_$pid.txt)
-  if ! grep -q "^VIOLATION" $out/check_$pid.txt && [ "$tier" = quick ]; then
-    # the flagged harnesses may belong to the thorough tier only (larger bounds, slow ones)
-    (cd $V && VERIF_ONLY="$hits" python3 check.py $pid --tier thorough > $out/check_${pid}_thorough.txt 2>$out/check_${pid}_thorough.err; echo "exit=$? (tier thorough, restricted to the harnesses the native sweep flagged: $hits)" >> $out/check_${pid}_thorough.txt)
-    if grep -q "^VIOLATION" $out/check_${pid}_thorough.txt; then cp $out/check_${pid}_thorough.txt $out/check_$pid.txt; fi
-  fi
-fi
-if [ -z "$hits" ] || { ! grep -q "^VIOLATION" $out/check_$pid.txt && grep -q "no obligation was generated" $out/check_$pid.txt; }; then
-  (cd $V && python3 check.py $pid --tier $tier > $out/check_$pid.txt 2>$out/check_$pid.err; echo "exit=$? (tier $tier, full check; native sweep flagged nothing the restricted runs could decide)" >> $out/check_$pid.txt)
-fi
-rif [ -n "$hits" ]; then
-  (cd $V && VERIF_ONLY="$hits" python3 check.py $pid --tier $tier > $out/check_$pid.txt 2>$out/check_$pid.err; echo "exit=$? (tier $tier, restricted to the harnesses the native sweep flagged: $hits)" >> $out/check_$pid.txt)
-  if ! grep -q "^VIOLATION" $out/check_$pid.txt && [ "$tier" = quick ]; then
-    # the flagged harnesses may belong to the thorough tier only (larger bounds, slow ones)
-    (cd $V && VERIF_ONLY="$hits" python3 check.py $pid --tier thorough > $out/check_${pid}_thorough.txt 2>$out/check_${pid}_thorough.err; echo "exit=$? (tier thorough, restricted to the harnesses the native sweep flagged: $hits)" >> $out/check_${pid}_thorough.txt)
-    if grep -q "^VIOLATION" $out/check_${pid}_thorough.txt; then cp $out/check_${pid}_thorough.txt $out/check_$pid.txt; fi
-  fi
-fi
-if [ -z "$hits" ] || { ! grep -q "^VIOLATION" $out/check_$pid.txt && grep -q "no obligation was generated" $out/check_$pid.txt; }; then
-  (cd $V && python3 check.py $pid --tier $tier > $out/check_$pid.txt 2>$out/check_$pid.err; echo "exit=$? (tier $tier, full check; native sweep flagged nothing the restricted runs could decide)" >> $out/check_$pid.txt)
-fi
-eif [ -n "$hits" ]; then
-  (cd $V && VERIF_ONLY="$hits" python3 check.py $pid --tier $tier > $out/check_$pid.txt 2>$out/check_$pid.err; echo "exit=$? (tier $tier, restricted to the harnesses the native sweep flagged: $hits)" >> $out/check_$pid.txt)
-  if ! grep -q "^VIOLATION" $out/check_$pid.txt && [ "$tier" = quick ]; then
-    # the flagged harnesses may belong to the thorough tier only (larger bounds, slow ones)
-    (cd $V && VERIF_ONLY="$hits" python3 check.py $pid --tier thorough > $out/check_${pid}_thorough.txt 2>$out/check_${pid}_thorough.err; echo "exit=$? (tier thorough, restricted to the harnesses the native sweep flagged: $hits)" >> $out/check_${pid}_thorough.txt)
-    if grep -q "^VIOLATION" $out/check_${pid}_thorough.txt; then cp $out/check_${pid}_thorough.txt $out/check_$pid.txt; fi
-  fi
-fi
-if [ -z "$hits" ] || { ! grep -q "^VIOLATION" $out/check_$pid.txt && grep -q "no obligation was generated" $out/check_$pid.txt; }; then
-  (cd $V && python3 check.py $pid --tier $tier > $out/check_$pid.txt 2>$out/check_$pid.err; echo "exit=$? (tier $tier, full check; native sweep flagged nothing the restricted runs could decide)" >> $out/check_$pid.txt)
-fi
-pif [ -n "$hits" ]; then
-  (cd $V && VERIF_ONLY="$hits" python3 check.py $pid --tier $tier > $out/check_$pid.txt 2>$out/check_$pid.err; echo "exit=$? (tier $tier, restricted to the harnesses the native sweep flagged: $hits)" >> $out/check_$pid.txt)
-  if ! grep -q "^VIOLATION" $out/check_$pid.txt && [ "$tier" = quick ]; then
-    # the flagged harnesses may belong to the thorough tier only (larger bounds, slow ones)
-    (cd $V && VERIF_ONLY="$hits" python3 check.py $pid --tier thorough > $out/check_${pid}_thorough.txt 2>$out/check_${pid}_thorough.err; echo "exit=$? (tier thorough, restricted to the harnesses the native sweep flagged: $hits)" >> $out/check_${pid}_thorough.txt)
-    if grep -q "^VIOLATION" $out/check_${pid}_thorough.txt; then cp $out/check_${pid}_thorough.txt $out/check_$pid.txt; fi
-  fi
-fi
-if [ -z "$hits" ] || { ! grep -q "^VIOLATION" $out/check_$pid.txt && grep -q "no obligation was generated" $out/check_$pid.txt; }; then
-  (cd $V && python3 check.py $pid --tier $tier > $out/check_$pid.txt 2>$out/check_$pid.err; echo "exit=$? (tier $tier, full check; native sweep flagged nothing the restricted runs could decide)" >> $out/check_$pid.txt)
-fi
- if [ -n "$hits" ]; then
-  (cd $V && VERIF_ONLY="$hits" python3 check.py $pid --tier $tier > $out/check_$pid.txt 2>$out/check_$pid.err; echo "exit=$? (tier $tier, restricted to the harnesses the native sweep flagged: $hits)" >> $out/check_$pid.txt)
-  if ! grep -q "^VIOLATION" $out/check_$pid.txt && [ "$tier" = quick ]; then
-    # the flagged harnesses may belong to the thorough tier only (larger bounds, slow ones)
-    (cd $V && VERIF_ONLY="$hits" python3 check.py $pid --tier thorough > $out/check_${pid}_thorough.txt 2>$out/check_${pid}_thorough.err; echo "exit=$? (tier thorough, restricted to the harnesses the native sweep flagged: $hits)" >> $out/check_${pid}_thorough.txt)
-    if grep -q "^VIOLATION" $out/check_${pid}_thorough.txt; then cp $out/check_${pid}_thorough.txt $out/check_$pid.txt; fi
-  fi
-fi
-if [ -z "$hits" ] || { ! grep -q "^VIOLATION" $out/check_$pid.txt && grep -q "no obligation was generated" $out/check_$pid.txt; }; then
-  (cd $V && python3 check.py $pid --tier $tier > $out/check_$pid.txt 2>$out/check_$pid.err; echo "exit=$? (tier $tier, full check; native sweep flagged nothing the restricted runs could decide)" >> $out/check_$pid.txt)
-fi
-'if [ -n "$hits" ]; then
-  (cd $V && VERIF_ONLY="$hits" python3 check.py $pid --tier $tier > $out/check_$pid.txt 2>$out/check_$pid.err; echo "exit=$? (tier $tier, restricted to the harnesses the native sweep flagged: $hits)" >> $out/check_$pid.txt)
-  if ! grep -q "^VIOLATION" $out/check_$pid.txt && [ "$tier" = quick ]; then
-    # the flagged harnesses may belong to the thorough tier only (larger bounds, slow ones)
-    (cd $V && VERIF_ONLY="$hits" python3 check.py $pid --tier thorough > $out/check_${pid}_thorough.txt 2>$out/check_${pid}_thorough.err; echo "exit=$? (tier thorough, restricted to the harnesses the native sweep flagged: $hits)" >> $out/check_${pid}_thorough.txt)
-    if grep -q "^VIOLATION" $out/check_${pid}_thorough.txt; then cp $out/check_${pid}_thorough.txt $out/check_$pid.txt; fi
-  fi
-fi
-if [ -z "$hits" ] || { ! grep -q "^VIOLATION" $out/check_$pid.txt && grep -q "no obligation was generated" $out/check_$pid.txt; }; then
-  (cd $V && python3 check.py $pid --tier $tier > $out/check_$pid.txt 2>$out/check_$pid.err; echo "exit=$? (tier $tier, full check; native sweep flagged nothing the restricted runs could decide)" >> $out/check_$pid.txt)
-fi
-^if [ -n "$hits" ]; then
-  (cd $V && VERIF_ONLY="$hits" python3 check.py $pid --tier $tier > $out/check_$pid.txt 2>$out/check_$pid.err; echo "exit=$? (tier $tier, restricted to the harnesses the native sweep flagged: $hits)" >> $out/check_$pid.txt)
-  if ! grep -q "^VIOLATION" $out/check_$pid.txt && [ "$tier" = quick ]; then
-    # the flagged harnesses may belong to the thorough tier only (larger bounds, slow ones)
-    (cd $V && VERIF_ONLY="$hits" python3 check.py $pid --tier thorough > $out/check_${pid}_thorough.txt 2>$out/check_${pid}_thorough.err; echo "exit=$? (tier thorough, restricted to the harnesses the native sweep flagged: $hits)" >> $out/check_${pid}_thorough.txt)
-    if grep -q "^VIOLATION" $out/check_${pid}_thorough.txt; then cp $out/check_${pid}_thorough.txt $out/check_$pid.txt; fi
-  fi
-fi
-if [ -z "$hits" ] || { ! grep -q "^VIOLATION" $out/check_$pid.txt && grep -q "no obligation was generated" $out/check_$pid.txt; }; then
-  (cd $V && python3 check.py $pid --tier $tier > $out/check_$pid.txt 2>$out/check_$pid.err; echo "exit=$? (tier $tier, full check; native sweep flagged nothing the restricted runs could decide)" >> $out/check_$pid.txt)
-fi
-Sif [ -n "$hits" ]; then
-  (cd $V && VERIF_ONLY="$hits" python3 check.py $pid --tier $tier > $out/check_$pid.txt 2>$out/check_$pid.err; echo "exit=$? (tier $tier, restricted to the harnesses the native sweep flagged: $hits)" >> $out/check_$pid.txt)
-  if ! grep -q "^VIOLATION" $out/check_$pid.txt && [ "$tier" = quick ]; then
-    # the flagged harnesses may belong to the thorough tier only (larger bounds, slow ones)
-    (cd $V && VERIF_ONLY="$hits" python3 check.py $pid --tier thorough > $out/check_${pid}_thorough.txt 2>$out/check_${pid}_thorough.err; echo "exit=$? (tier thorough, restricted to the harnesses the native sweep flagged: $hits)" >> $out/check_${pid}_thorough.txt)
-    if grep -q "^VIOLATION" $out/check_${pid}_thorough.txt; then cp $out/check_${pid}_thorough.txt $out/check_$pid.txt; fi
-  fi
-fi
-if [ -z "$hits" ] || { ! grep -q "^VIOLATION" $out/check_$pid.txt && grep -q "no obligation was generated" $out/check_$pid.txt; }; then
-  (cd $V && python3 check.py $pid --tier $tier > $out/check_$pid.txt 2>$out/check_$pid.err; echo "exit=$? (tier $tier, full check; native sweep flagged nothing the restricted runs could decide)" >> $out/check_$pid.txt)
-fi
-Wif [ -n "$hits" ]; then
-  (cd $V && VERIF_ONLY="$hits" python3 check.py $pid --tier $tier > $out/check_$pid.txt 2>$out/check_$pid.err; echo "exit=$? (tier $tier, restricted to the harnesses the native sweep flagged: $hits)" >> $out/check_$pid.txt)
-  if ! grep -q "^VIOLATION" $out/check_$pid.txt && [ "$tier" = quick ]; then
-    # the flagged harnesses may belong to the thorough tier only (larger bounds, slow ones)
-    (cd $V && VERIF_ONLY="$hits" python3 check.py $pid --tier thorough > $out/check_${pid}_thorough.txt 2>$out/check_${pid}_thorough.err; echo "exit=$? (tier thorough, restricted to the harnesses the native sweep flagged: $hits)" >> $out/check_${pid}_thorough.txt)
-    if grep -q "^VIOLATION" $out/check_${pid}_thorough.txt; then cp $out/check_${pid}_thorough.txt $out/check_$pid.txt; fi
-  fi
-fi
-if [ -z "$hits" ] || { ! grep -q "^VIOLATION" $out/check_$pid.txt && grep -q "no obligation was generated" $out/check_$pid.txt; }; then
-  (cd $V && python3 check.py $pid --tier $tier > $out/check_$pid.txt 2>$out/check_$pid.err; echo "exit=$? (tier $tier, full check; native sweep flagged nothing the restricted runs could decide)" >> $out/check_$pid.txt)
-fi
-Eif [ -n "$hits" ]; then
-  (cd $V && VERIF_ONLY="$hits" python3 check.py $pid --tier $tier > $out/check_$pid.txt 2>$out/check_$pid.err; echo "exit=$? (tier $tier, restricted to the harnesses the native sweep flagged: $hits)" >> $out/check_$pid.txt)
-  if ! grep -q "^VIOLATION" $out/check_$pid.txt && [ "$tier" = quick ]; then
-    # the flagged harnesses may belong to the thorough tier only (larger bounds, slow ones)
-    (cd $V && VERIF_ONLY="$hits" python3 check.py $pid --tier thorough > $out/check_${pid}_thorough.txt 2>$out/check_${pid}_thorough.err; echo "exit=$? (tier thorough, restricted to the harnesses the native sweep flagged: $hits)" >> $out/check_${pid}_thorough.txt)
-    if grep -q "^VIOLATION" $out/check_${pid}_thorough.txt; then cp $out/check_${pid}_thorough.txt $out/check_$pid.txt; fi
-  fi
-fi
-if [ -z "$hits" ] || { ! grep -q "^VIOLATION" $out/check_$pid.txt && grep -q "no obligation was generated" $out/check_$pid.txt; }; then
-  (cd $V && python3 check.py $pid --tier $tier > $out/check_$pid.txt 2>$out/check_$pid.err; echo "exit=$? (tier $tier, full check; native sweep flagged nothing the restricted runs could decide)" >> $out/check_$pid.txt)
-fi
-Eif [ -n "$hits" ]; then
-  (cd $V && VERIF_ONLY="$hits" python3 check.py $pid --tier $tier > $out/check_$pid.txt 2>$out/check_$pid.err; echo "exit=$? (tier $tier, restricted to the harnesses the native sweep flagged: $hits)" >> $out/check_$pid.txt)
-  if ! grep -q "^VIOLATION" $out/check_$pid.txt && [ "$tier" = quick ]; then
-    # the flagged harnesses may belong to the thorough tier only (larger bounds, slow ones)
-    (cd $V && VERIF_ONLY="$hits" python3 check.py $pid --tier thorough > $out/check_${pid}_thorough.txt 2>$out/check_${pid}_thorough.err; echo "exit=$? (tier thorough, restricted to the harnesses the native sweep flagged: $hits)" >> $out/check_${pid}_thorough.txt)
-    if grep -q "^VIOLATION" $out/check_${pid}_thorough.txt; then cp $out/check_${pid}_thorough.txt $out/check_$pid.txt; fi
-  fi
-fi
-if [ -z "$hits" ] || { ! grep -q "^VIOLATION" $out/check_$pid.txt && grep -q "no obligation was generated" $out/check_$pid.txt; }; then
-  (cd $V && python3 check.py $pid --tier $tier > $out/check_$pid.txt 2>$out/check_$pid.err; echo "exit=$? (tier $tier, full check; native sweep flagged nothing the restricted runs could decide)" >> $out/check_$pid.txt)
-fi
-Pif [ -n "$hits" ]; then
-  (cd $V && VERIF_ONLY="$hits" python3 check.py $pid --tier $tier > $out/check_$pid.txt 2>$out/check_$pid.err; echo "exit=$? (tier $tier, restricted to the harnesses the native sweep flagged: $hits)" >> $out/check_$pid.txt)
-  if ! grep -q "^VIOLATION" $out/check_$pid.txt && [ "$tier" = quick ]; then
-    # the flagged harnesses may belong to the thorough tier only (larger bounds, slow ones)
-    (cd $V && VERIF_ONLY="$hits" python3 check.py $pid --tier thorough > $out/check_${pid}_thorough.txt 2>$out/check_${pid}_thorough.err; echo "exit=$? (tier thorough, restricted to the harnesses the native sweep flagged: $hits)" >> $out/check_${pid}_thorough.txt)
-    if grep -q "^VIOLATION" $out/check_${pid}_thorough.txt; then cp $out/check_${pid}_thorough.txt $out/check_$pid.txt; fi
-  fi
-fi
-if [ -z "$hits" ] || { ! grep -q "^VIOLATION" $out/check_$pid.txt && grep -q "no obligation was generated" $out/check_$pid.txt; }; then
-  (cd $V && python3 check.py $pid --tier $tier > $out/check_$pid.txt 2>$out/check_$pid.err; echo "exit=$? (tier $tier, full check; native sweep flagged nothing the restricted runs could decide)" >> $out/check_$pid.txt)
-fi
--if [ -n "$hits" ]; then
-  (cd $V && VERIF_ONLY="$hits" python3 check.py $pid --tier $tier > $out/check_$pid.txt 2>$out/check_$pid.err; echo "exit=$? (tier $tier, restricted to the harnesses the native sweep flagged: $hits)" >> $out/check_$pid.txt)
-  if ! grep -q "^VIOLATION" $out/check_$pid.txt && [ "$tier" = quick ]; then
-    # the flagged harnesses may belong to the thorough tier only (larger bounds, slow ones)
-    (cd $V && VERIF_ONLY="$hits" python3 check.py $pid --tier thorough > $out/check_${pid}_thorough.txt 2>$out/check_${pid}_thorough.err; echo "exit=$? (tier thorough, restricted to the harnesses the native sweep flagged: $hits)" >> $out/check_${pid}_thorough.txt)
-    if grep -q "^VIOLATION" $out/check_${pid}_thorough.txt; then cp $out/check_${pid}_thorough.txt $out/check_$pid.txt; fi
-  fi
-fi
-if [ -z "$hits" ] || { ! grep -q "^VIOLATION" $out/check_$pid.txt && grep -q "no obligation was generated" $out/check_$pid.txt; }; then
-  (cd $V && python3 check.py $pid --tier $tier > $out/check_$pid.txt 2>$out/check_$pid.err; echo "exit=$? (tier $tier, full check; native sweep flagged nothing the restricted runs could decide)" >> $out/check_$pid.txt)
-fi
-Hif [ -n "$hits" ]; then
-  (cd $V && VERIF_ONLY="$hits" python3 check.py $pid --tier $tier > $out/check_$pid.txt 2>$out/check_$pid.err; echo "exit=$? (tier $tier, restricted to the harnesses the native sweep flagged: $hits)" >> $out/check_$pid.txt)
-  if ! grep -q "^VIOLATION" $out/check_$pid.txt && [ "$tier" = quick ]; then
-    # the flagged harnesses may belong to the thorough tier only (larger bounds, slow ones)
-    (cd $V && VERIF_ONLY="$hits" python3 check.py $pid --tier thorough > $out/check_${pid}_thorough.txt 2>$out/check_${pid}_thorough.err; echo "exit=$? (tier thorough, restricted to the harnesses the native sweep flagged: $hits)" >> $out/check_${pid}_thorough.txt)
-    if grep -q "^VIOLATION" $out/check_${pid}_thorough.txt; then cp $out/check_${pid}_thorough.txt $out/check_$pid.txt; fi
-  fi
-fi
-if [ -z "$hits" ] || { ! grep -q "^VIOLATION" $out/check_$pid.txt && grep -q "no obligation was generated" $out/check_$pid.txt; }; then
-  (cd $V && python3 check.py $pid --tier $tier > $out/check_$pid.txt 2>$out/check_$pid.err; echo "exit=$? (tier $tier, full check; native sweep flagged nothing the restricted runs could decide)" >> $out/check_$pid.txt)
-fi
-Iif [ -n "$hits" ]; then
-  (cd $V && VERIF_ONLY="$hits" python3 check.py $pid --tier $tier > $out/check_$pid.txt 2>$out/check_$pid.err; echo "exit=$? (tier $tier, restricted to the harnesses the native sweep flagged: $hits)" >> $out/check_$pid.txt)
-  if ! grep -q "^VIOLATION" $out/check_$pid.txt && [ "$tier" = quick ]; then
-    # the flagged harnesses may belong to the thorough tier only (larger bounds, slow ones)
-    (cd $V && VERIF_ONLY="$hits" python3 check.py $pid --tier thorough > $out/check_${pid}_thorough.txt 2>$out/check_${pid}_thorough.err; echo "exit=$? (tier thorough, restricted to the harnesses the native sweep flagged: $hits)" >> $out/check_${pid}_thorough.txt)
-    if grep -q "^VIOLATION" $out/check_${pid}_thorough.txt; then cp $out/check_${pid}_thorough.txt $out/check_$pid.txt; fi
-  fi
-fi
-if [ -z "$hits" ] || { ! grep -q "^VIOLATION" $out/check_$pid.txt && grep -q "no obligation was generated" $out/check_$pid.txt; }; then
-  (cd $V && python3 check.py $pid --tier $tier > $out/check_$pid.txt 2>$out/check_$pid.err; echo "exit=$? (tier $tier, full check; native sweep flagged nothing the restricted runs could decide)" >> $out/check_$pid.txt)
-fi
-Tif [ -n "$hits" ]; then
-  (cd $V && VERIF_ONLY="$hits" python3 check.py $pid --tier $tier > $out/check_$pid.txt 2>$out/check_$pid.err; echo "exit=$? (tier $tier, restricted to the harnesses the native sweep flagged: $hits)" >> $out/check_$pid.txt)
-  if ! grep -q "^VIOLATION" $out/check_$pid.txt && [ "$tier" = quick ]; then
-    # the flagged harnesses may belong to the thorough tier only (larger bounds, slow ones)
-    (cd $V && VERIF_ONLY="$hits" python3 check.py $pid --tier thorough > $out/check_${pid}_thorough.txt 2>$out/check_${pid}_thorough.err; echo "exit=$? (tier thorough, restricted to the harnesses the native sweep flagged: $hits)" >> $out/check_${pid}_thorough.txt)
-    if grep -q "^VIOLATION" $out/check_${pid}_thorough.txt; then cp $out/check_${pid}_thorough.txt $out/check_$pid.txt; fi
-  fi
-fi
-if [ -z "$hits" ] || { ! grep -q "^VIOLATION" $out/check_$pid.txt && grep -q "no obligation was generated" $out/check_$pid.txt; }; then
-  (cd $V && python3 check.py $pid --tier $tier > $out/check_$pid.txt 2>$out/check_$pid.err; echo "exit=$? (tier $tier, full check; native sweep flagged nothing the restricted runs could decide)" >> $out/check_$pid.txt)
-fi
-Sif [ -n "$hits" ]; then
-  (cd $V && VERIF_ONLY="$hits" python3 check.py $pid --tier $tier > $out/check_$pid.txt 2>$out/check_$pid.err; echo "exit=$? (tier $tier, restricted to the harnesses the native sweep flagged: $hits)" >> $out/check_$pid.txt)
-  if ! grep -q "^VIOLATION" $out/check_$pid.txt && [ "$tier" = quick ]; then
-    # the flagged harnesses may belong to the thorough tier only (larger bounds, slow ones)
-    (cd $V && VERIF_ONLY="$hits" python3 check.py $pid --tier thorough > $out/check_${pid}_thorough.txt 2>$out/check_${pid}_thorough.err; echo "exit=$? (tier thorough, restricted to the harnesses the native sweep flagged: $hits)" >> $out/check_${pid}_thorough.txt)
-    if grep -q "^VIOLATION" $out/check_${pid}_thorough.txt; then cp $out/check_${pid}_thorough.txt $out/check_$pid.txt; fi
-  fi
-fi
-if [ -z "$hits" ] || { ! grep -q "^VIOLATION" $out/check_$pid.txt && grep -q "no obligation was generated" $out/check_$pid.txt; }; then
-  (cd $V && python3 check.py $pid --tier $tier > $out/check_$pid.txt 2>$out/check_$pid.err; echo "exit=$? (tier $tier, full check; native sweep flagged nothing the restricted runs could decide)" >> $out/check_$pid.txt)
-fi
-'if [ -n "$hits" ]; then
-  (cd $V && VERIF_ONLY="$hits" python3 check.py $pid --tier $tier > $out/check_$pid.txt 2>$out/check_$pid.err; echo "exit=$? (tier $tier, restricted to the harnesses the native sweep flagged: $hits)" >> $out/check_$pid.txt)
-  if ! grep -q "^VIOLATION" $out/check_$pid.txt && [ "$tier" = quick ]; then
-    # the flagged harnesses may belong to the thorough tier only (larger bounds, slow ones)
-    (cd $V && VERIF_ONLY="$hits" python3 check.py $pid --tier thorough > $out/check_${pid}_thorough.txt 2>$out/check_${pid}_thorough.err; echo "exit=$? (tier thorough, restricted to the harnesses the native sweep flagged: $hits)" >> $out/check_${pid}_thorough.txt)
-    if grep -q "^VIOLATION" $out/check_${pid}_thorough.txt; then cp $out/check_${pid}_thorough.txt $out/check_$pid.txt; fi
-  fi
-fi
-if [ -z "$hits" ] || { ! grep -q "^VIOLATION" $out/check_$pid.txt && grep -q "no obligation was generated" $out/check_$pid.txt; }; then
-  (cd $V && python3 check.py $pid --tier $tier > $out/check_$pid.txt 2>$out/check_$pid.err; echo "exit=$? (tier $tier, full check; native sweep flagged nothing the restricted runs could decide)" >> $out/check_$pid.txt)
-fi
- if [ -n "$hits" ]; then
-  (cd $V && VERIF_ONLY="$hits" python3 check.py $pid --tier $tier > $out/check_$pid.txt 2>$out/check_$pid.err; echo "exit=$? (tier $tier, restricted to the harnesses the native sweep flagged: $hits)" >> $out/check_$pid.txt)
-  if ! grep -q "^VIOLATION" $out/check_$pid.txt && [ "$tier" = quick ]; then
-    # the flagged harnesses may belong to the thorough tier only (larger bounds, slow ones)
-    (cd $V && VERIF_ONLY="$hits" python3 check.py $pid --tier thorough > $out/check_${pid}_thorough.txt 2>$out/check_${pid}_thorough.err; echo "exit=$? (tier thorough, restricted to the harnesses the native sweep flagged: $hits)" >> $out/check_${pid}_thorough.txt)
-    if grep -q "^VIOLATION" $out/check_${pid}_thorough.txt; then cp $out/check_${pid}_thorough.txt $out/check_$pid.txt; fi
-  fi
-fi
-if [ -z "$hits" ] || { ! grep -q "^VIOLATION" $out/check_$pid.txt && grep -q "no obligation was generated" $out/check_$pid.txt; }; then
-  (cd $V && python3 check.py $pid --tier $tier > $out/check_$pid.txt 2>$out/check_$pid.err; echo "exit=$? (tier $tier, full check; native sweep flagged nothing the restricted runs could decide)" >> $out/check_$pid.txt)
-fi
-$if [ -n "$hits" ]; then
-  (cd $V && VERIF_ONLY="$hits" python3 check.py $pid --tier $tier > $out/check_$pid.txt 2>$out/check_$pid.err; echo "exit=$? (tier $tier, restricted to the harnesses the native sweep flagged: $hits)" >> $out/check_$pid.txt)
-  if ! grep -q "^VIOLATION" $out/check_$pid.txt && [ "$tier" = quick ]; then
-    # the flagged harnesses may belong to the thorough tier only (larger bounds, slow ones)
-    (cd $V && VERIF_ONLY="$hits" python3 check.py $pid --tier thorough > $out/check_${pid}_thorough.txt 2>$out/check_${pid}_thorough.err; echo "exit=$? (tier thorough, restricted to the harnesses the native sweep flagged: $hits)" >> $out/check_${pid}_thorough.txt)
-    if grep -q "^VIOLATION" $out/check_${pid}_thorough.txt; then cp $out/check_${pid}_thorough.txt $out/check_$pid.txt; fi
-  fi
-fi
-if [ -z "$hits" ] || { ! grep -q "^VIOLATION" $out/check_$pid.txt && grep -q "no obligation was generated" $out/check_$pid.txt; }; then
-  (cd $V && python3 check.py $pid --tier $tier > $out/check_$pid.txt 2>$out/check_$pid.err; echo "exit=$? (tier $tier, full check; native sweep flagged nothing the restricted runs could decide)" >> $out/check_$pid.txt)
-fi
-oif [ -n "$hits" ]; then
-  (cd $V && VERIF_ONLY="$hits" python3 check.py $pid --tier $tier > $out/check_$pid.txt 2>$out/check_$pid.err; echo "exit=$? (tier $tier, restricted to the harnesses the native sweep flagged: $hits)" >> $out/check_$pid.txt)
-  if ! grep -q "^VIOLATION" $out/check_$pid.txt && [ "$tier" = quick ]; then
-    # the flagged harnesses may belong to the thorough tier only (larger bounds, slow ones)
-    (cd $V && VERIF_ONLY="$hits" python3 check.py $pid --tier thorough > $out/check_${pid}_thorough.txt 2>$out/check_${pid}_thorough.err; echo "exit=$? (tier thorough, restricted to the harnesses the native sweep flagged: $hits)" >> $out/check_${pid}_thorough.txt)
-    if grep -q "^VIOLATION" $out/check_${pid}_thorough.txt; then cp $out/check_${pid}_thorough.txt $out/check_$pid.txt; fi
-  fi
-fi
-if [ -z "$hits" ] || { ! grep -q "^VIOLATION" $out/check_$pid.txt && grep -q "no obligation was generated" $out/check_$pid.txt; }; then
-  (cd $V && python3 check.py $pid --tier $tier > $out/check_$pid.txt 2>$out/check_$pid.err; echo "exit=$? (tier $tier, full check; native sweep flagged nothing the restricted runs could decide)" >> $out/check_$pid.txt)
-fi
-uif [ -n "$hits" ]; then
-  (cd $V && VERIF_ONLY="$hits" python3 check.py $pid --tier $tier > $out/check_$pid.txt 2>$out/check_$pid.err; echo "exit=$? (tier $tier, restricted to the harnesses the native sweep flagged: $hits)" >> $out/check_$pid.txt)
-  if ! grep -q "^VIOLATION" $out/check_$pid.txt && [ "$tier" = quick ]; then
-    # the flagged harnesses may belong to the thorough tier only (larger bounds, slow ones)
-    (cd $V && VERIF_ONLY="$hits" python3 check.py $pid --tier thorough > $out/check_${pid}_thorough.txt 2>$out/check_${pid}_thorough.err; echo "exit=$? (tier thorough, restricted to the harnesses the native sweep flagged: $hits)" >> $out/check_${pid}_thorough.txt)
-    if grep -q "^VIOLATION" $out/check_${pid}_thorough.txt; then cp $out/check_${pid}_thorough.txt $out/check_$pid.txt; fi
-  fi
-fi
-if [ -z "$hits" ] || { ! grep -q "^VIOLATION" $out/check_$pid.txt && grep -q "no obligation was generated" $out/check_$pid.txt; }; then
-  (cd $V && python3 check.py $pid --tier $tier > $out/check_$pid.txt 2>$out/check_$pid.err; echo "exit=$? (tier $tier, full check; native sweep flagged nothing the restricted runs could decide)" >> $out/check_$pid.txt)
-fi
-tif [ -n "$hits" ]; then
-  (cd $V && VERIF_ONLY="$hits" python3 check.py $pid --tier $tier > $out/check_$pid.txt 2>$out/check_$pid.err; echo "exit=$? (tier $tier, restricted to the harnesses the native sweep flagged: $hits)" >> $out/check_$pid.txt)
-  if ! grep -q "^VIOLATION" $out/check_$pid.txt && [ "$tier" = quick ]; then
-    # the flagged harnesses may belong to the thorough tier only (larger bounds, slow ones)
-    (cd $V && VERIF_ONLY="$hits" python3 check.py $pid --tier thorough > $out/check_${pid}_thorough.txt 2>$out/check_${pid}_thorough.err; echo "exit=$? (tier thorough, restricted to the harnesses the native sweep flagged: $hits)" >> $out/check_${pid}_thorough.txt)
-    if grep -q "^VIOLATION" $out/check_${pid}_thorough.txt; then cp $out/check_${pid}_thorough.txt $out/check_$pid.txt; fi
-  fi
-fi
-if [ -z "$hits" ] || { ! grep -q "^VIOLATION" $out/check_$pid.txt && grep -q "no obligation was generated" $out/check_$pid.txt; }; then
-  (cd $V && python3 check.py $pid --tier $tier > $out/check_$pid.txt 2>$out/check_$pid.err; echo "exit=$? (tier $tier, full check; native sweep flagged nothing the restricted runs could decide)" >> $out/check_$pid.txt)
-fi
-/if [ -n "$hits" ]; then
-  (cd $V && VERIF_ONLY="$hits" python3 check.py $pid --tier $tier > $out/check_$pid.txt 2>$out/check_$pid.err; echo "exit=$? (tier $tier, restricted to the harnesses the native sweep flagged: $hits)" >> $out/check_$pid.txt)
-  if ! grep -q "^VIOLATION" $out/check_$pid.txt && [ "$tier" = quick ]; then
-    # the flagged harnesses may belong to the thorough tier only (larger bounds, slow ones)
-    (cd $V && VERIF_ONLY="$hits" python3 check.py $pid --tier thorough > $out/check_${pid}_thorough.txt 2>$out/check_${pid}_thorough.err; echo "exit=$? (tier thorough, restricted to the harnesses the native sweep flagged: $hits)" >> $out/check_${pid}_thorough.txt)
-    if grep -q "^VIOLATION" $out/check_${pid}_thorough.txt; then cp $out/check_${pid}_thorough.txt $out/check_$pid.txt; fi
-  fi
-fi
-if [ -z "$hits" ] || { ! grep -q "^VIOLATION" $out/check_$pid.txt && grep -q "no obligation was generated" $out/check_$pid.txt; }; then
-  (cd $V && python3 check.py $pid --tier $tier > $out/check_$pid.txt 2>$out/check_$pid.err; echo "exit=$? (tier $tier, full check; native sweep flagged nothing the restricted runs could decide)" >> $out/check_$pid.txt)
-fi
-sif [ -n "$hits" ]; then
-  (cd $V && VERIF_ONLY="$hits" python3 check.py $pid --tier $tier > $out/check_$pid.txt 2>$out/check_$pid.err; echo "exit=$? (tier $tier, restricted to the harnesses the native sweep flagged: $hits)" >> $out/check_$pid.txt)
-  if ! grep -q "^VIOLATION" $out/check_$pid.txt && [ "$tier" = quick ]; then
-    # the flagged harnesses may belong to the thorough tier only (larger bounds, slow ones)
-    (cd $V && VERIF_ONLY="$hits" python3 check.py $pid --tier thorough > $out/check_${pid}_thorough.txt 2>$out/check_${pid}_thorough.err; echo "exit=$? (tier thorough, restricted to the harnesses the native sweep flagged: $hits)" >> $out/check_${pid}_thorough.txt)
-    if grep -q "^VIOLATION" $out/check_${pid}_thorough.txt; then cp $out/check_${pid}_thorough.txt $out/check_$pid.txt; fi
-  fi
-fi
-if [ -z "$hits" ] || { ! grep -q "^VIOLATION" $out/check_$pid.txt && grep -q "no obligation was generated" $out/check_$pid.txt; }; then
-  (cd $V && python3 check.py $pid --tier $tier > $out/check_$pid.txt 2>$out/check_$pid.err; echo "exit=$? (tier $tier, full check; native sweep flagged nothing the restricted runs could decide)" >> $out/check_$pid.txt)
-fi
-wif [ -n "$hits" ]; then
-  (cd $V && VERIF_ONLY="$hits" python3 check.py $pid --tier $tier > $out/check_$pid.txt 2>$out/check_$pid.err; echo "exit=$? (tier $tier, restricted to the harnesses the native sweep flagged: $hits)" >> $out/check_$pid.txt)
-  if ! grep -q "^VIOLATION" $out/check_$pid.txt && [ "$tier" = quick ]; then
-    # the flagged harnesses may belong to the thorough tier only (larger bounds, slow ones)
-    (cd $V && VERIF_ONLY="$hits" python3 check.py $pid --tier thorough > $out/check_${pid}_thorough.txt 2>$out/check_${pid}_thorough.err; echo "exit=$? (tier thorough, restricted to the harnesses the native sweep flagged: $hits)" >> $out/check_${pid}_thorough.txt)
-    if grep -q "^VIOLATION" $out/check_${pid}_thorough.txt; then cp $out/check_${pid}_thorough.txt $out/check_$pid.txt; fi
-  fi
-fi
-if [ -z "$hits" ] || { ! grep -q "^VIOLATION" $out/check_$pid.txt && grep -q "no obligation was generated" $out/check_$pid.txt; }; then
-  (cd $V && python3 check.py $pid --tier $tier > $out/check_$pid.txt 2>$out/check_$pid.err; echo "exit=$? (tier $tier, full check; native sweep flagged nothing the restricted runs could decide)" >> $out/check_$pid.txt)
-fi
-eif [ -n "$hits" ]; then
-  (cd $V && VERIF_ONLY="$hits" python3 check.py $pid --tier $tier > $out/check_$pid.txt 2>$out/check_$pid.err; echo "exit=$? (tier $tier, restricted to the harnesses the native sweep flagged: $hits)" >> $out/check_$pid.txt)
-  if ! grep -q "^VIOLATION" $out/check_$pid.txt && [ "$tier" = quick ]; then
-    # the flagged harnesses may belong to the thorough tier only (larger bounds, slow ones)
-    (cd $V && VERIF_ONLY="$hits" python3 check.py $pid --tier thorough > $out/check_${pid}_thorough.txt 2>$out/check_${pid}_thorough.err; echo "exit=$? (tier thorough, restricted to the harnesses the native sweep flagged: $hits)" >> $out/check_${pid}_thorough.txt)
-    if grep -q "^VIOLATION" $out/check_${pid}_thorough.txt; then cp $out/check_${pid}_thorough.txt $out/check_$pid.txt; fi
-  fi
-fi
-if [ -z "$hits" ] || { ! grep -q "^VIOLATION" $out/check_$pid.txt && grep -q "no obligation was generated" $out/check_$pid.txt; }; then
-  (cd $V && python3 check.py $pid --tier $tier > $out/check_$pid.txt 2>$out/check_$pid.err; echo "exit=$? (tier $tier, full check; native sweep flagged nothing the restricted runs could decide)" >> $out/check_$pid.txt)
-fi
-eif [ -n "$hits" ]; then
-  (cd $V && VERIF_ONLY="$hits" python3 check.py $pid --tier $tier > $out/check_$pid.txt 2>$out/check_$pid.err; echo "exit=$? (tier $tier, restricted to the harnesses the native sweep flagged: $hits)" >> $out/check_$pid.txt)
-  if ! grep -q "^VIOLATION" $out/check_$pid.txt && [ "$tier" = quick ]; then
-    # the flagged harnesses may belong to the thorough tier only (larger bounds, slow ones)
-    (cd $V && VERIF_ONLY="$hits" python3 check.py $pid --tier thorough > $out/check_${pid}_thorough.txt 2>$out/check_${pid}_thorough.err; echo "exit=$? (tier thorough, restricted to the harnesses the native sweep flagged: $hits)" >> $out/check_${pid}_thorough.txt)
-    if grep -q "^VIOLATION" $out/check_${pid}_thorough.txt; then cp $out/check_${pid}_thorough.txt $out/check_$pid.txt; fi
-  fi
-fi
-if [ -z "$hits" ] || { ! grep -q "^VIOLATION" $out/check_$pid.txt && grep -q "no obligation was generated" $out/check_$pid.txt; }; then
-  (cd $V && python3 check.py $pid --tier $tier > $out/check_$pid.txt 2>$out/check_$pid.err; echo "exit=$? (tier $tier, full check; native sweep flagged nothing the restricted runs could decide)" >> $out/check_$pid.txt)
-fi
-pif [ -n "$hits" ]; then
-  (cd $V && VERIF_ONLY="$hits" python3 check.py $pid --tier $tier > $out/check_$pid.txt 2>$out/check_$pid.err; echo "exit=$? (tier $tier, restricted to the harnesses the native sweep flagged: $hits)" >> $out/check_$pid.txt)
-  if ! grep -q "^VIOLATION" $out/check_$pid.txt && [ "$tier" = quick ]; then
-    # the flagged harnesses may belong to the thorough tier only (larger bounds, slow ones)
-    (cd $V && VERIF_ONLY="$hits" python3 check.py $pid --tier thorough > $out/check_${pid}_thorough.txt 2>$out/check_${pid}_thorough.err; echo "exit=$? (tier thorough, restricted to the harnesses the native sweep flagged: $hits)" >> $out/check_${pid}_thorough.txt)
-    if grep -q "^VIOLATION" $out/check_${pid}_thorough.txt; then cp $out/check_${pid}_thorough.txt $out/check_$pid.txt; fi
-  fi
-fi
-if [ -z "$hits" ] || { ! grep -q "^VIOLATION" $out/check_$pid.txt && grep -q "no obligation was generated" $out/check_$pid.txt; }; then
-  (cd $V && python3 check.py $pid --tier $tier > $out/check_$pid.txt 2>$out/check_$pid.err; echo "exit=$? (tier $tier, full check; native sweep flagged nothing the restricted runs could decide)" >> $out/check_$pid.txt)
-fi
-.if [ -n "$hits" ]; then
-  (cd $V && VERIF_ONLY="$hits" python3 check.py $pid --tier $tier > $out/check_$pid.txt 2>$out/check_$pid.err; echo "exit=$? (tier $tier, restricted to the harnesses the native sweep flagged: $hits)" >> $out/check_$pid.txt)
-  if ! grep -q "^VIOLATION" $out/check_$pid.txt && [ "$tier" = quick ]; then
-    # the flagged harnesses may belong to the thorough tier only (larger bounds, slow ones)
-    (cd $V && VERIF_ONLY="$hits" python3 check.py $pid --tier thorough > $out/check_${pid}_thorough.txt 2>$out/check_${pid}_thorough.err; echo "exit=$? (tier thorough, restricted to the harnesses the native sweep flagged: $hits)" >> $out/check_${pid}_thorough.txt)
-    if grep -q "^VIOLATION" $out/check_${pid}_thorough.txt; then cp $out/check_${pid}_thorough.txt $out/check_$pid.txt; fi
-  fi
-fi
-if [ -z "$hits" ] || { ! grep -q "^VIOLATION" $out/check_$pid.txt && grep -q "no obligation was generated" $out/check_$pid.txt; }; then
-  (cd $V && python3 check.py $pid --tier $tier > $out/check_$pid.txt 2>$out/check_$pid.err; echo "exit=$? (tier $tier, full check; native sweep flagged nothing the restricted runs could decide)" >> $out/check_$pid.txt)
-fi
-tif [ -n "$hits" ]; then
-  (cd $V && VERIF_ONLY="$hits" python3 check.py $pid --tier $tier > $out/check_$pid.txt 2>$out/check_$pid.err; echo "exit=$? (tier $tier, restricted to the harnesses the native sweep flagged: $hits)" >> $out/check_$pid.txt)
-  if ! grep -q "^VIOLATION" $out/check_$pid.txt && [ "$tier" = quick ]; then
-    # the flagged harnesses may belong to the thorough tier only (larger bounds, slow ones)
-    (cd $V && VERIF_ONLY="$hits" python3 check.py $pid --tier thorough > $out/check_${pid}_thorough.txt 2>$out/check_${pid}_thorough.err; echo "exit=$? (tier thorough, restricted to the harnesses the native sweep flagged: $hits)" >> $out/check_${pid}_thorough.txt)
-    if grep -q "^VIOLATION" $out/check_${pid}_thorough.txt; then cp $out/check_${pid}_thorough.txt $out/check_$pid.txt; fi
-  fi
-fi
-if [ -z "$hits" ] || { ! grep -q "^VIOLATION" $out/check_$pid.txt && grep -q "no obligation was generated" $out/check_$pid.txt; }; then
-  (cd $V && python3 check.py $pid --tier $tier > $out/check_$pid.txt 2>$out/check_$pid.err; echo "exit=$? (tier $tier, full check; native sweep flagged nothing the restricted runs could decide)" >> $out/check_$pid.txt)
-fi
-xif [ -n "$hits" ]; then
-  (cd $V && VERIF_ONLY="$hits" python3 check.py $pid --tier $tier > $out/check_$pid.txt 2>$out/check_$pid.err; echo "exit=$? (tier $tier, restricted to the harnesses the native sweep flagged: $hits)" >> $out/check_$pid.txt)
-  if ! grep -q "^VIOLATION" $out/check_$pid.txt && [ "$tier" = quick ]; then
-    # the flagged harnesses may belong to the thorough tier only (larger bounds, slow ones)
-    (cd $V && VERIF_ONLY="$hits" python3 check.py $pid --tier thorough > $out/check_${pid}_thorough.txt 2>$out/check_${pid}_thorough.err; echo "exit=$? (tier thorough, restricted to the harnesses the native sweep flagged: $hits)" >> $out/check_${pid}_thorough.txt)
-    if grep -q "^VIOLATION" $out/check_${pid}_thorough.txt; then cp $out/check_${pid}_thorough.txt $out/check_$pid.txt; fi
-  fi
-fi
-if [ -z "$hits" ] || { ! grep -q "^VIOLATION" $out/check_$pid.txt && grep -q "no obligation was generated" $out/check_$pid.txt; }; then
-  (cd $V && python3 check.py $pid --tier $tier > $out/check_$pid.txt 2>$out/check_$pid.err; echo "exit=$? (tier $tier, full check; native sweep flagged nothing the restricted runs could decide)" >> $out/check_$pid.txt)
-fi
-tif [ -n "$hits" ]; then
-  (cd $V && VERIF_ONLY="$hits" python3 check.py $pid --tier $tier > $out/check_$pid.txt 2>$out/check_$pid.err; echo "exit=$? (tier $tier, restricted to the harnesses the native sweep flagged: $hits)" >> $out/check_$pid.txt)
-  if ! grep -q "^VIOLATION" $out/check_$pid.txt && [ "$tier" = quick ]; then
-    # the flagged harnesses may belong to the thorough tier only (larger bounds, slow ones)
-    (cd $V && VERIF_ONLY="$hits" python3 check.py $pid --tier thorough > $out/check_${pid}_thorough.txt 2>$out/check_${pid}_thorough.err; echo "exit=$? (tier thorough, restricted to the harnesses the native sweep flagged: $hits)" >> $out/check_${pid}_thorough.txt)
-    if grep -q "^VIOLATION" $out/check_${pid}_thorough.txt; then cp $out/check_${pid}_thorough.txt $out/check_$pid.txt; fi
-  fi
-fi
-if [ -z "$hits" ] || { ! grep -q "^VIOLATION" $out/check_$pid.txt && grep -q "no obligation was generated" $out/check_$pid.txt; }; then
-  (cd $V && python3 check.py $pid --tier $tier > $out/check_$pid.txt 2>$out/check_$pid.err; echo "exit=$? (tier $tier, full check; native sweep flagged nothing the restricted runs could decide)" >> $out/check_$pid.txt)
-fi
- if [ -n "$hits" ]; then
-  (cd $V && VERIF_ONLY="$hits" python3 check.py $pid --tier $tier > $out/check_$pid.txt 2>$out/check_$pid.err; echo "exit=$? (tier $tier, restricted to the harnesses the native sweep flagged: $hits)" >> $out/check_$pid.txt)
-  if ! grep -q "^VIOLATION" $out/check_$pid.txt && [ "$tier" = quick ]; then
-    # the flagged harnesses may belong to the thorough tier only (larger bounds, slow ones)
-    (cd $V && VERIF_ONLY="$hits" python3 check.py $pid --tier thorough > $out/check_${pid}_thorough.txt 2>$out/check_${pid}_thorough.err; echo "exit=$? (tier thorough, restricted to the harnesses the native sweep flagged: $hits)" >> $out/check_${pid}_thorough.txt)
-    if grep -q "^VIOLATION" $out/check_${pid}_thorough.txt; then cp $out/check_${pid}_thorough.txt $out/check_$pid.txt; fi
-  fi
-fi
-if [ -z "$hits" ] || { ! grep -q "^VIOLATION" $out/check_$pid.txt && grep -q "no obligation was generated" $out/check_$pid.txt; }; then
-  (cd $V && python3 check.py $pid --tier $tier > $out/check_$pid.txt 2>$out/check_$pid.err; echo "exit=$? (tier $tier, full check; native sweep flagged nothing the restricted runs could decide)" >> $out/check_$pid.txt)
-fi
-|if [ -n "$hits" ]; then
-  (cd $V && VERIF_ONLY="$hits" python3 check.py $pid --tier $tier > $out/check_$pid.txt 2>$out/check_$pid.err; echo "exit=$? (tier $tier, restricted to the harnesses the native sweep flagged: $hits)" >> $out/check_$pid.txt)
-  if ! grep -q "^VIOLATION" $out/check_$pid.txt && [ "$tier" = quick ]; then
-    # the flagged harnesses may belong to the thorough tier only (larger bounds, slow ones)
-    (cd $V && VERIF_ONLY="$hits" python3 check.py $pid --tier thorough > $out/check_${pid}_thorough.txt 2>$out/check_${pid}_thorough.err; echo "exit=$? (tier thorough, restricted to the harnesses the native sweep flagged: $hits)" >> $out/check_${pid}_thorough.txt)
-    if grep -q "^VIOLATION" $out/check_${pid}_thorough.txt; then cp $out/check_${pid}_thorough.txt $out/check_$pid.txt; fi
-  fi
-fi
-if [ -z "$hits" ] || { ! grep -q "^VIOLATION" $out/check_$pid.txt && grep -q "no obligation was generated" $out/check_$pid.txt; }; then
-  (cd $V && python3 check.py $pid --tier $tier > $out/check_$pid.txt 2>$out/check_$pid.err; echo "exit=$? (tier $tier, full check; native sweep flagged nothing the restricted runs could decide)" >> $out/check_$pid.txt)
-fi
- if [ -n "$hits" ]; then
-  (cd $V && VERIF_ONLY="$hits" python3 check.py $pid --tier $tier > $out/check_$pid.txt 2>$out/check_$pid.err; echo "exit=$? (tier $tier, restricted to the harnesses the native sweep flagged: $hits)" >> $out/check_$pid.txt)
-  if ! grep -q "^VIOLATION" $out/check_$pid.txt && [ "$tier" = quick ]; then
-    # the flagged harnesses may belong to the thorough tier only (larger bounds, slow ones)
-    (cd $V && VERIF_ONLY="$hits" python3 check.py $pid --tier thorough > $out/check_${pid}_thorough.txt 2>$out/check_${pid}_thorough.err; echo "exit=$? (tier thorough, restricted to the harnesses the native sweep flagged: $hits)" >> $out/check_${pid}_thorough.txt)
-    if grep -q "^VIOLATION" $out/check_${pid}_thorough.txt; then cp $out/check_${pid}_thorough.txt $out/check_$pid.txt; fi
-  fi
-fi
-if [ -z "$hits" ] || { ! grep -q "^VIOLATION" $out/check_$pid.txt && grep -q "no obligation was generated" $out/check_$pid.txt; }; then
-  (cd $V && python3 check.py $pid --tier $tier > $out/check_$pid.txt 2>$out/check_$pid.err; echo "exit=$? (tier $tier, full check; native sweep flagged nothing the restricted runs could decide)" >> $out/check_$pid.txt)
-fi
-sif [ -n "$hits" ]; then
-  (cd $V && VERIF_ONLY="$hits" python3 check.py $pid --tier $tier > $out/check_$pid.txt 2>$out/check_$pid.err; echo "exit=$? (tier $tier, restricted to the harnesses the native sweep flagged: $hits)" >> $out/check_$pid.txt)
-  if ! grep -q "^VIOLATION" $out/check_$pid.txt && [ "$tier" = quick ]; then
-    # the flagged harnesses may belong to the thorough tier only (larger bounds, slow ones)
-    (cd $V && VERIF_ONLY="$hits" python3 check.py $pid --tier thorough > $out/check_${pid}_thorough.txt 2>$out/check_${pid}_thorough.err; echo "exit=$? (tier thorough, restricted to the harnesses the native sweep flagged: $hits)" >> $out/check_${pid}_thorough.txt)
-    if grep -q "^VIOLATION" $out/check_${pid}_thorough.txt; then cp $out/check_${pid}_thorough.txt $out/check_$pid.txt; fi
-  fi
-fi
-if [ -z "$hits" ] || { ! grep -q "^VIOLATION" $out/check_$pid.txt && grep -q "no obligation was generated" $out/check_$pid.txt; }; then
-  (cd $V && python3 check.py $pid --tier $tier > $out/check_$pid.txt 2>$out/check_$pid.err; echo "exit=$? (tier $tier, full check; native sweep flagged nothing the restricted runs could decide)" >> $out/check_$pid.txt)
-fi
-eif [ -n "$hits" ]; then
-  (cd $V && VERIF_ONLY="$hits" python3 check.py $pid --tier $tier > $out/check_$pid.txt 2>$out/check_$pid.err; echo "exit=$? (tier $tier, restricted to the harnesses the native sweep flagged: $hits)" >> $out/check_$pid.txt)
-  if ! grep -q "^VIOLATION" $out/check_$pid.txt && [ "$tier" = quick ]; then
-    # the flagged harnesses may belong to the thorough tier only (larger bounds, slow ones)
-    (cd $V && VERIF_ONLY="$hits" python3 check.py $pid --tier thorough > $out/check_${pid}_thorough.txt 2>$out/check_${pid}_thorough.err; echo "exit=$? (tier thorough, restricted to the harnesses the native sweep flagged: $hits)" >> $out/check_${pid}_thorough.txt)
-    if grep -q "^VIOLATION" $out/check_${pid}_thorough.txt; then cp $out/check_${pid}_thorough.txt $out/check_$pid.txt; fi
-  fi
-fi
-if [ -z "$hits" ] || { ! grep -q "^VIOLATION" $out/check_$pid.txt && grep -q "no obligation was generated" $out/check_$pid.txt; }; then
-  (cd $V && python3 check.py $pid --tier $tier > $out/check_$pid.txt 2>$out/check_$pid.err; echo "exit=$? (tier $tier, full check; native sweep flagged nothing the restricted runs could decide)" >> $out/check_$pid.txt)
-fi
-dif [ -n "$hits" ]; then
-  (cd $V && VERIF_ONLY="$hits" python3 check.py $pid --tier $tier > $out/check_$pid.txt 2>$out/check_$pid.err; echo "exit=$? (tier $tier, restricted to the harnesses the native sweep flagged: $hits)" >> $out/check_$pid.txt)
-  if ! grep -q "^VIOLATION" $out/check_$pid.txt && [ "$tier" = quick ]; then
-    # the flagged harnesses may belong to the thorough tier only (larger bounds, slow ones)
-    (cd $V && VERIF_ONLY="$hits" python3 check.py $pid --tier thorough > $out/check_${pid}_thorough.txt 2>$out/check_${pid}_thorough.err; echo "exit=$? (tier thorough, restricted to the harnesses the native sweep flagged: $hits)" >> $out/check_${pid}_thorough.txt)
-    if grep -q "^VIOLATION" $out/check_${pid}_thorough.txt; then cp $out/check_${pid}_thorough.txt $out/check_$pid.txt; fi
-  fi
-fi
-if [ -z "$hits" ] || { ! grep -q "^VIOLATION" $out/check_$pid.txt && grep -q "no obligation was generated" $out/check_$pid.txt; }; then
-  (cd $V && python3 check.py $pid --tier $tier > $out/check_$pid.txt 2>$out/check_$pid.err; echo "exit=$? (tier $tier, full check; native sweep flagged nothing the restricted runs could decide)" >> $out/check_$pid.txt)
-fi
- if [ -n "$hits" ]; then
-  (cd $V && VERIF_ONLY="$hits" python3 check.py $pid --tier $tier > $out/check_$pid.txt 2>$out/check_$pid.err; echo "exit=$? (tier $tier, restricted to the harnesses the native sweep flagged: $hits)" >> $out/check_$pid.txt)
-  if ! grep -q "^VIOLATION" $out/check_$pid.txt && [ "$tier" = quick ]; then
-    # the flagged harnesses may belong to the thorough tier only (larger bounds, slow ones)
-    (cd $V && VERIF_ONLY="$hits" python3 check.py $pid --tier thorough > $out/check_${pid}_thorough.txt 2>$out/check_${pid}_thorough.err; echo "exit=$? (tier thorough, restricted to the harnesses the native sweep flagged: $hits)" >> $out/check_${pid}_thorough.txt)
-    if grep -q "^VIOLATION" $out/check_${pid}_thorough.txt; then cp $out/check_${pid}_thorough.txt $out/check_$pid.txt; fi
-  fi
-fi
-if [ -z "$hits" ] || { ! grep -q "^VIOLATION" $out/check_$pid.txt && grep -q "no obligation was generated" $out/check_$pid.txt; }; then
-  (cd $V && python3 check.py $pid --tier $tier > $out/check_$pid.txt 2>$out/check_$pid.err; echo "exit=$? (tier $tier, full check; native sweep flagged nothing the restricted runs could decide)" >> $out/check_$pid.txt)
-fi
-'if [ -n "$hits" ]; then
-  (cd $V && VERIF_ONLY="$hits" python3 check.py $pid --tier $tier > $out/check_$pid.txt 2>$out/check_$pid.err; echo "exit=$? (tier $tier, restricted to the harnesses the native sweep flagged: $hits)" >> $out/check_$pid.txt)
-  if ! grep -q "^VIOLATION" $out/check_$pid.txt && [ "$tier" = quick ]; then
-    # the flagged harnesses may belong to the thorough tier only (larger bounds, slow ones)
-    (cd $V && VERIF_ONLY="$hits" python3 check.py $pid --tier thorough > $out/check_${pid}_thorough.txt 2>$out/check_${pid}_thorough.err; echo "exit=$? (tier thorough, restricted to the harnesses the native sweep flagged: $hits)" >> $out/check_${pid}_thorough.txt)
-    if grep -q "^VIOLATION" $out/check_${pid}_thorough.txt; then cp $out/check_${pid}_thorough.txt $out/check_$pid.txt; fi
-  fi
-fi
-if [ -z "$hits" ] || { ! grep -q "^VIOLATION" $out/check_$pid.txt && grep -q "no obligation was generated" $out/check_$pid.txt; }; then
-  (cd $V && python3 check.py $pid --tier $tier > $out/check_$pid.txt 2>$out/check_$pid.err; echo "exit=$? (tier $tier, full check; native sweep flagged nothing the restricted runs could decide)" >> $out/check_$pid.txt)
-fi
-sif [ -n "$hits" ]; then
-  (cd $V && VERIF_ONLY="$hits" python3 check.py $pid --tier $tier > $out/check_$pid.txt 2>$out/check_$pid.err; echo "exit=$? (tier $tier, restricted to the harnesses the native sweep flagged: $hits)" >> $out/check_$pid.txt)
-  if ! grep -q "^VIOLATION" $out/check_$pid.txt && [ "$tier" = quick ]; then
-    # the flagged harnesses may belong to the thorough tier only (larger bounds, slow ones)
-    (cd $V && VERIF_ONLY="$hits" python3 check.py $pid --tier thorough > $out/check_${pid}_thorough.txt 2>$out/check_${pid}_thorough.err; echo "exit=$? (tier thorough, restricted to the harnesses the native sweep flagged: $hits)" >> $out/check_${pid}_thorough.txt)
-    if grep -q "^VIOLATION" $out/check_${pid}_thorough.txt; then cp $out/check_${pid}_thorough.txt $out/check_$pid.txt; fi
-  fi
-fi
-if [ -z "$hits" ] || { ! grep -q "^VIOLATION" $out/check_$pid.txt && grep -q "no obligation was generated" $out/check_$pid.txt; }; then
-  (cd $V && python3 check.py $pid --tier $tier > $out/check_$pid.txt 2>$out/check_$pid.err; echo "exit=$? (tier $tier, full check; native sweep flagged nothing the restricted runs could decide)" >> $out/check_$pid.txt)
-fi
-/if [ -n "$hits" ]; then
-  (cd $V && VERIF_ONLY="$hits" python3 check.py $pid --tier $tier > $out/check_$pid.txt 2>$out/check_$pid.err; echo "exit=$? (tier $tier, restricted to the harnesses the native sweep flagged: $hits)" >> $out/check_$pid.txt)
-  if ! grep -q "^VIOLATION" $out/check_$pid.txt && [ "$tier" = quick ]; then
-    # the flagged harnesses may belong to the thorough tier only (larger bounds, slow ones)
-    (cd $V && VERIF_ONLY="$hits" python3 check.py $pid --tier thorough > $out/check_${pid}_thorough.txt 2>$out/check_${pid}_thorough.err; echo "exit=$? (tier thorough, restricted to the harnesses the native sweep flagged: $hits)" >> $out/check_${pid}_thorough.txt)
-    if grep -q "^VIOLATION" $out/check_${pid}_thorough.txt; then cp $out/check_${pid}_thorough.txt $out/check_$pid.txt; fi
-  fi
-fi
-if [ -z "$hits" ] || { ! grep -q "^VIOLATION" $out/check_$pid.txt && grep -q "no obligation was generated" $out/check_$pid.txt; }; then
-  (cd $V && python3 check.py $pid --tier $tier > $out/check_$pid.txt 2>$out/check_$pid.err; echo "exit=$? (tier $tier, full check; native sweep flagged nothing the restricted runs could decide)" >> $out/check_$pid.txt)
-fi
-^if [ -n "$hits" ]; then
-  (cd $V && VERIF_ONLY="$hits" python3 check.py $pid --tier $tier > $out/check_$pid.txt 2>$out/check_$pid.err; echo "exit=$? (tier $tier, restricted to the harnesses the native sweep flagged: $hits)" >> $out/check_$pid.txt)
-  if ! grep -q "^VIOLATION" $out/check_$pid.txt && [ "$tier" = quick ]; then
-    # the flagged harnesses may belong to the thorough tier only (larger bounds, slow ones)
-    (cd $V && VERIF_ONLY="$hits" python3 check.py $pid --tier thorough > $out/check_${pid}_thorough.txt 2>$out/check_${pid}_thorough.err; echo "exit=$? (tier thorough, restricted to the harnesses the native sweep flagged: $hits)" >> $out/check_${pid}_thorough.txt)
-    if grep -q "^VIOLATION" $out/check_${pid}_thorough.txt; then cp $out/check_${pid}_thorough.txt $out/check_$pid.txt; fi
-  fi
-fi
-if [ -z "$hits" ] || { ! grep -q "^VIOLATION" $out/check_$pid.txt && grep -q "no obligation was generated" $out/check_$pid.txt; }; then
-  (cd $V && python3 check.py $pid --tier $tier > $out/check_$pid.txt 2>$out/check_$pid.err; echo "exit=$? (tier $tier, full check; native sweep flagged nothing the restricted runs could decide)" >> $out/check_$pid.txt)
-fi
-Sif [ -n "$hits" ]; then
-  (cd $V && VERIF_ONLY="$hits" python3 check.py $pid --tier $tier > $out/check_$pid.txt 2>$out/check_$pid.err; echo "exit=$? (tier $tier, restricted to the harnesses the native sweep flagged: $hits)" >> $out/check_$pid.txt)
-  if ! grep -q "^VIOLATION" $out/check_$pid.txt && [ "$tier" = quick ]; then
-    # the flagged harnesses may belong to the thorough tier only (larger bounds, slow ones)
-    (cd $V && VERIF_ONLY="$hits" python3 check.py $pid --tier thorough > $out/check_${pid}_thorough.txt 2>$out/check_${pid}_thorough.err; echo "exit=$? (tier thorough, restricted to the harnesses the native sweep flagged: $hits)" >> $out/check_${pid}_thorough.txt)
-    if grep -q "^VIOLATION" $out/check_${pid}_thorough.txt; then cp $out/check_${pid}_thorough.txt $out/check_$pid.txt; fi
-  fi
-fi
-if [ -z "$hits" ] || { ! grep -q "^VIOLATION" $out/check_$pid.txt && grep -q "no obligation was generated" $out/check_$pid.txt; }; then
-  (cd $V && python3 check.py $pid --tier $tier > $out/check_$pid.txt 2>$out/check_$pid.err; echo "exit=$? (tier $tier, full check; native sweep flagged nothing the restricted runs could decide)" >> $out/check_$pid.txt)
-fi
-Wif [ -n "$hits" ]; then
-  (cd $V && VERIF_ONLY="$hits" python3 check.py $pid --tier $tier > $out/check_$pid.txt 2>$out/check_$pid.err; echo "exit=$? (tier $tier, restricted to the harnesses the native sweep flagged: $hits)" >> $out/check_$pid.txt)
-  if ! grep -q "^VIOLATION" $out/check_$pid.txt && [ "$tier" = quick ]; then
-    # the flagged harnesses may belong to the thorough tier only (larger bounds, slow ones)
-    (cd $V && VERIF_ONLY="$hits" python3 check.py $pid --tier thorough > $out/check_${pid}_thorough.txt 2>$out/check_${pid}_thorough.err; echo "exit=$? (tier thorough, restricted to the harnesses the native sweep flagged: $hits)" >> $out/check_${pid}_thorough.txt)
-    if grep -q "^VIOLATION" $out/check_${pid}_thorough.txt; then cp $out/check_${pid}_thorough.txt $out/check_$pid.txt; fi
-  fi
-fi
-if [ -z "$hits" ] || { ! grep -q "^VIOLATION" $out/check_$pid.txt && grep -q "no obligation was generated" $out/check_$pid.txt; }; then
-  (cd $V && python3 check.py $pid --tier $tier > $out/check_$pid.txt 2>$out/check_$pid.err; echo "exit=$? (tier $tier, full check; native sweep flagged nothing the restricted runs could decide)" >> $out/check_$pid.txt)
-fi
-Eif [ -n "$hits" ]; then
-  (cd $V && VERIF_ONLY="$hits" python3 check.py $pid --tier $tier > $out/check_$pid.txt 2>$out/check_$pid.err; echo "exit=$? (tier $tier, restricted to the harnesses the native sweep flagged: $hits)" >> $out/check_$pid.txt)
-  if ! grep -q "^VIOLATION" $out/check_$pid.txt && [ "$tier" = quick ]; then
-    # the flagged harnesses may belong to the thorough tier only (larger bounds, slow ones)
-    (cd $V && VERIF_ONLY="$hits" python3 check.py $pid --tier thorough > $out/check_${pid}_thorough.txt 2>$out/check_${pid}_thorough.err; echo "exit=$? (tier thorough, restricted to the harnesses the native sweep flagged: $hits)" >> $out/check_${pid}_thorough.txt)
-    if grep -q "^VIOLATION" $out/check_${pid}_thorough.txt; then cp $out/check_${pid}_thorough.txt $out/check_$pid.txt; fi
-  fi
-fi
-if [ -z "$hits" ] || { ! grep -q "^VIOLATION" $out/check_$pid.txt && grep -q "no obligation was generated" $out/check_$pid.txt; }; then
-  (cd $V && python3 check.py $pid --tier $tier > $out/check_$pid.txt 2>$out/check_$pid.err; echo "exit=$? (tier $tier, full check; native sweep flagged nothing the restricted runs could decide)" >> $out/check_$pid.txt)
-fi
-Eif [ -n "$hits" ]; then
-  (cd $V && VERIF_ONLY="$hits" python3 check.py $pid --tier $tier > $out/check_$pid.txt 2>$out/check_$pid.err; echo "exit=$? (tier $tier, restricted to the harnesses the native sweep flagged: $hits)" >> $out/check_$pid.txt)
-  if ! grep -q "^VIOLATION" $out/check_$pid.txt && [ "$tier" = quick ]; then
-    # the flagged harnesses may belong to the thorough tier only (larger bounds, slow ones)
-    (cd $V && VERIF_ONLY="$hits" python3 check.py $pid --tier thorough > $out/check_${pid}_thorough.txt 2>$out/check_${pid}_thorough.err; echo "exit=$? (tier thorough, restricted to the harnesses the native sweep flagged: $hits)" >> $out/check_${pid}_thorough.txt)
-    if grep -q "^VIOLATION" $out/check_${pid}_thorough.txt; then cp $out/check_${pid}_thorough.txt $out/check_$pid.txt; fi
-  fi
-fi
-if [ -z "$hits" ] || { ! grep -q "^VIOLATION" $out/check_$pid.txt && grep -q "no obligation was generated" $out/check_$pid.txt; }; then
-  (cd $V && python3 check.py $pid --tier $tier > $out/check_$pid.txt 2>$out/check_$pid.err; echo "exit=$? (tier $tier, full check; native sweep flagged nothing the restricted runs could decide)" >> $out/check_$pid.txt)
-fi
-Pif [ -n "$hits" ]; then
-  (cd $V && VERIF_ONLY="$hits" python3 check.py $pid --tier $tier > $out/check_$pid.txt 2>$out/check_$pid.err; echo "exit=$? (tier $tier, restricted to the harnesses the native sweep flagged: $hits)" >> $out/check_$pid.txt)
-  if ! grep -q "^VIOLATION" $out/check_$pid.txt && [ "$tier" = quick ]; then
-    # the flagged harnesses may belong to the thorough tier only (larger bounds, slow ones)
-    (cd $V && VERIF_ONLY="$hits" python3 check.py $pid --tier thorough > $out/check_${pid}_thorough.txt 2>$out/check_${pid}_thorough.err; echo "exit=$? (tier thorough, restricted to the harnesses the native sweep flagged: $hits)" >> $out/check_${pid}_thorough.txt)
-    if grep -q "^VIOLATION" $out/check_${pid}_thorough.txt; then cp $out/check_${pid}_thorough.txt $out/check_$pid.txt; fi
-  fi
-fi
-if [ -z "$hits" ] || { ! grep -q "^VIOLATION" $out/check_$pid.txt && grep -q "no obligation was generated" $out/check_$pid.txt; }; then
-  (cd $V && python3 check.py $pid --tier $tier > $out/check_$pid.txt 2>$out/check_$pid.err; echo "exit=$? (tier $tier, full check; native sweep flagged nothing the restricted runs could decide)" >> $out/check_$pid.txt)
-fi
--if [ -n "$hits" ]; then
-  (cd $V && VERIF_ONLY="$hits" python3 check.py $pid --tier $tier > $out/check_$pid.txt 2>$out/check_$pid.err; echo "exit=$? (tier $tier, restricted to the harnesses the native sweep flagged: $hits)" >> $out/check_$pid.txt)
-  if ! grep -q "^VIOLATION" $out/check_$pid.txt && [ "$tier" = quick ]; then
-    # the flagged harnesses may belong to the thorough tier only (larger bounds, slow ones)
-    (cd $V && VERIF_ONLY="$hits" python3 check.py $pid --tier thorough > $out/check_${pid}_thorough.txt 2>$out/check_${pid}_thorough.err; echo "exit=$? (tier thorough, restricted to the harnesses the native sweep flagged: $hits)" >> $out/check_${pid}_thorough.txt)
-    if grep -q "^VIOLATION" $out/check_${pid}_thorough.txt; then cp $out/check_${pid}_thorough.txt $out/check_$pid.txt; fi
-  fi
-fi
-if [ -z "$hits" ] || { ! grep -q "^VIOLATION" $out/check_$pid.txt && grep -q "no obligation was generated" $out/check_$pid.txt; }; then
-  (cd $V && python3 check.py $pid --tier $tier > $out/check_$pid.txt 2>$out/check_$pid.err; echo "exit=$? (tier $tier, full check; native sweep flagged nothing the restricted runs could decide)" >> $out/check_$pid.txt)
-fi
-Hif [ -n "$hits" ]; then
-  (cd $V && VERIF_ONLY="$hits" python3 check.py $pid --tier $tier > $out/check_$pid.txt 2>$out/check_$pid.err; echo "exit=$? (tier $tier, restricted to the harnesses the native sweep flagged: $hits)" >> $out/check_$pid.txt)
-  if ! grep -q "^VIOLATION" $out/check_$pid.txt && [ "$tier" = quick ]; then
-    # the flagged harnesses may belong to the thorough tier only (larger bounds, slow ones)
-    (cd $V && VERIF_ONLY="$hits" python3 check.py $pid --tier thorough > $out/check_${pid}_thorough.txt 2>$out/check_${pid}_thorough.err; echo "exit=$? (tier thorough, restricted to the harnesses the native sweep flagged: $hits)" >> $out/check_${pid}_thorough.txt)
-    if grep -q "^VIOLATION" $out/check_${pid}_thorough.txt; then cp $out/check_${pid}_thorough.txt $out/check_$pid.txt; fi
-  fi
-fi
-if [ -z "$hits" ] || { ! grep -q "^VIOLATION" $out/check_$pid.txt && grep -q "no obligation was generated" $out/check_$pid.txt; }; then
-  (cd $V && python3 check.py $pid --tier $tier > $out/check_$pid.txt 2>$out/check_$pid.err; echo "exit=$? (tier $tier, full check; native sweep flagged nothing the restricted runs could decide)" >> $out/check_$pid.txt)
-fi
-Iif [ -n "$hits" ]; then
-  (cd $V && VERIF_ONLY="$hits" python3 check.py $pid --tier $tier > $out/check_$pid.txt 2>$out/check_$pid.err; echo "exit=$? (tier $tier, restricted to the harnesses the native sweep flagged: $hits)" >> $out/check_$pid.txt)
-  if ! grep -q "^VIOLATION" $out/check_$pid.txt && [ "$tier" = quick ]; then
-    # the flagged harnesses may belong to the thorough tier only (larger bounds, slow ones)
-    (cd $V && VERIF_ONLY="$hits" python3 check.py $pid --tier thorough > $out/check_${pid}_thorough.txt 2>$out/check_${pid}_thorough.err; echo "exit=$? (tier thorough, restricted to the harnesses the native sweep flagged: $hits)" >> $out/check_${pid}_thorough.txt)
-    if grep -q "^VIOLATION" $out/check_${pid}_thorough.txt; then cp $out/check_${pid}_thorough.txt $out/check_$pid.txt; fi
-  fi
-fi
-if [ -z "$hits" ] || { ! grep -q "^VIOLATION" $out/check_$pid.txt && grep -q "no obligation was generated" $out/check_$pid.txt; }; then
-  (cd $V && python3 check.py $pid --tier $tier > $out/check_$pid.txt 2>$out/check_$pid.err; echo "exit=$? (tier $tier, full check; native sweep flagged nothing the restricted runs could decide)" >> $out/check_$pid.txt)
-fi
-Tif [ -n "$hits" ]; then
-  (cd $V && VERIF_ONLY="$hits" python3 check.py $pid --tier $tier > $out/check_$pid.txt 2>$out/check_$pid.err; echo "exit=$? (tier $tier, restricted to the harnesses the native sweep flagged: $hits)" >> $out/check_$pid.txt)
-  if ! grep -q "^VIOLATION" $out/check_$pid.txt && [ "$tier" = quick ]; then
-    # the flagged harnesses may belong to the thorough tier only (larger bounds, slow ones)
-    (cd $V && VERIF_ONLY="$hits" python3 check.py $pid --tier thorough > $out/check_${pid}_thorough.txt 2>$out/check_${pid}_thorough.err; echo "exit=$? (tier thorough, restricted to the harnesses the native sweep flagged: $hits)" >> $out/check_${pid}_thorough.txt)
-    if grep -q "^VIOLATION" $out/check_${pid}_thorough.txt; then cp $out/check_${pid}_thorough.txt $out/check_$pid.txt; fi
-  fi
-fi
-if [ -z "$hits" ] || { ! grep -q "^VIOLATION" $out/check_$pid.txt && grep -q "no obligation was generated" $out/check_$pid.txt; }; then
-  (cd $V && python3 check.py $pid --tier $tier > $out/check_$pid.txt 2>$out/check_$pid.err; echo "exit=$? (tier $tier, full check; native sweep flagged nothing the restricted runs could decide)" >> $out/check_$pid.txt)
-fi
-Sif [ -n "$hits" ]; then
-  (cd $V && VERIF_ONLY="$hits" python3 check.py $pid --tier $tier > $out/check_$pid.txt 2>$out/check_$pid.err; echo "exit=$? (tier $tier, restricted to the harnesses the native sweep flagged: $hits)" >> $out/check_$pid.txt)
-  if ! grep -q "^VIOLATION" $out/check_$pid.txt && [ "$tier" = quick ]; then
-    # the flagged harnesses may belong to the thorough tier only (larger bounds, slow ones)
-    (cd $V && VERIF_ONLY="$hits" python3 check.py $pid --tier thorough > $out/check_${pid}_thorough.txt 2>$out/check_${pid}_thorough.err; echo "exit=$? (tier thorough, restricted to the harnesses the native sweep flagged: $hits)" >> $out/check_${pid}_thorough.txt)
-    if grep -q "^VIOLATION" $out/check_${pid}_thorough.txt; then cp $out/check_${pid}_thorough.txt $out/check_$pid.txt; fi
-  fi
-fi
-if [ -z "$hits" ] || { ! grep -q "^VIOLATION" $out/check_$pid.txt && grep -q "no obligation was generated" $out/check_$pid.txt; }; then
-  (cd $V && python3 check.py $pid --tier $tier > $out/check_$pid.txt 2>$out/check_$pid.err; echo "exit=$? (tier $tier, full check; native sweep flagged nothing the restricted runs could decide)" >> $out/check_$pid.txt)
-fi
- if [ -n "$hits" ]; then
-  (cd $V && VERIF_ONLY="$hits" python3 check.py $pid --tier $tier > $out/check_$pid.txt 2>$out/check_$pid.err; echo "exit=$? (tier $tier, restricted to the harnesses the native sweep flagged: $hits)" >> $out/check_$pid.txt)
-  if ! grep -q "^VIOLATION" $out/check_$pid.txt && [ "$tier" = quick ]; then
-    # the flagged harnesses may belong to the thorough tier only (larger bounds, slow ones)
-    (cd $V && VERIF_ONLY="$hits" python3 check.py $pid --tier thorough > $out/check_${pid}_thorough.txt 2>$out/check_${pid}_thorough.err; echo "exit=$? (tier thorough, restricted to the harnesses the native sweep flagged: $hits)" >> $out/check_${pid}_thorough.txt)
-    if grep -q "^VIOLATION" $out/check_${pid}_thorough.txt; then cp $out/check_${pid}_thorough.txt $out/check_$pid.txt; fi
-  fi
-fi
-if [ -z "$hits" ] || { ! grep -q "^VIOLATION" $out/check_$pid.txt && grep -q "no obligation was generated" $out/check_$pid.txt; }; then
-  (cd $V && python3 check.py $pid --tier $tier > $out/check_$pid.txt 2>$out/check_$pid.err; echo "exit=$? (tier $tier, full check; native sweep flagged nothing the restricted runs could decide)" >> $out/check_$pid.txt)
-fi
-/if [ -n "$hits" ]; then
-  (cd $V && VERIF_ONLY="$hits" python3 check.py $pid --tier $tier > $out/check_$pid.txt 2>$out/check_$pid.err; echo "exit=$? (tier $tier, restricted to the harnesses the native sweep flagged: $hits)" >> $out/check_$pid.txt)
-  if ! grep -q "^VIOLATION" $out/check_$pid.txt && [ "$tier" = quick ]; then
-    # the flagged harnesses may belong to the thorough tier only (larger bounds, slow ones)
-    (cd $V && VERIF_ONLY="$hits" python3 check.py $pid --tier thorough > $out/check_${pid}_thorough.txt 2>$out/check_${pid}_thorough.err; echo "exit=$? (tier thorough, restricted to the harnesses the native sweep flagged: $hits)" >> $out/check_${pid}_thorough.txt)
-    if grep -q "^VIOLATION" $out/check_${pid}_thorough.txt; then cp $out/check_${pid}_thorough.txt $out/check_$pid.txt; fi
-  fi
-fi
-if [ -z "$hits" ] || { ! grep -q "^VIOLATION" $out/check_$pid.txt && grep -q "no obligation was generated" $out/check_$pid.txt; }; then
-  (cd $V && python3 check.py $pid --tier $tier > $out/check_$pid.txt 2>$out/check_$pid.err; echo "exit=$? (tier $tier, full check; native sweep flagged nothing the restricted runs could decide)" >> $out/check_$pid.txt)
-fi
-/if [ -n "$hits" ]; then
-  (cd $V && VERIF_ONLY="$hits" python3 check.py $pid --tier $tier > $out/check_$pid.txt 2>$out/check_$pid.err; echo "exit=$? (tier $tier, restricted to the harnesses the native sweep flagged: $hits)" >> $out/check_$pid.txt)
-  if ! grep -q "^VIOLATION" $out/check_$pid.txt && [ "$tier" = quick ]; then
-    # the flagged harnesses may belong to the thorough tier only (larger bounds, slow ones)
-    (cd $V && VERIF_ONLY="$hits" python3 check.py $pid --tier thorough > $out/check_${pid}_thorough.txt 2>$out/check_${pid}_thorough.err; echo "exit=$? (tier thorough, restricted to the harnesses the native sweep flagged: $hits)" >> $out/check_${pid}_thorough.txt)
-    if grep -q "^VIOLATION" $out/check_${pid}_thorough.txt; then cp $out/check_${pid}_thorough.txt $out/check_$pid.txt; fi
-  fi
-fi
-if [ -z "$hits" ] || { ! grep -q "^VIOLATION" $out/check_$pid.txt && grep -q "no obligation was generated" $out/check_$pid.txt; }; then
-  (cd $V && python3 check.py $pid --tier $tier > $out/check_$pid.txt 2>$out/check_$pid.err; echo "exit=$? (tier $tier, full check; native sweep flagged nothing the restricted runs could decide)" >> $out/check_$pid.txt)
-fi
-'if [ -n "$hits" ]; then
-  (cd $V && VERIF_ONLY="$hits" python3 check.py $pid --tier $tier > $out/check_$pid.txt 2>$out/check_$pid.err; echo "exit=$? (tier $tier, restricted to the harnesses the native sweep flagged: $hits)" >> $out/check_$pid.txt)
-  if ! grep -q "^VIOLATION" $out/check_$pid.txt && [ "$tier" = quick ]; then
-    # the flagged harnesses may belong to the thorough tier only (larger bounds, slow ones)
-    (cd $V && VERIF_ONLY="$hits" python3 check.py $pid --tier thorough > $out/check_${pid}_thorough.txt 2>$out/check_${pid}_thorough.err; echo "exit=$? (tier thorough, restricted to the harnesses the native sweep flagged: $hits)" >> $out/check_${pid}_thorough.txt)
-    if grep -q "^VIOLATION" $out/check_${pid}_thorough.txt; then cp $out/check_${pid}_thorough.txt $out/check_$pid.txt; fi
-  fi
-fi
-if [ -z "$hits" ] || { ! grep -q "^VIOLATION" $out/check_$pid.txt && grep -q "no obligation was generated" $out/check_$pid.txt; }; then
-  (cd $V && python3 check.py $pid --tier $tier > $out/check_$pid.txt 2>$out/check_$pid.err; echo "exit=$? (tier $tier, full check; native sweep flagged nothing the restricted runs could decide)" >> $out/check_$pid.txt)
-fi
- if [ -n "$hits" ]; then
-  (cd $V && VERIF_ONLY="$hits" python3 check.py $pid --tier $tier > $out/check_$pid.txt 2>$out/check_$pid.err; echo "exit=$? (tier $tier, restricted to the harnesses the native sweep flagged: $hits)" >> $out/check_$pid.txt)
-  if ! grep -q "^VIOLATION" $out/check_$pid.txt && [ "$tier" = quick ]; then
-    # the flagged harnesses may belong to the thorough tier only (larger bounds, slow ones)
-    (cd $V && VERIF_ONLY="$hits" python3 check.py $pid --tier thorough > $out/check_${pid}_thorough.txt 2>$out/check_${pid}_thorough.err; echo "exit=$? (tier thorough, restricted to the harnesses the native sweep flagged: $hits)" >> $out/check_${pid}_thorough.txt)
-    if grep -q "^VIOLATION" $out/check_${pid}_thorough.txt; then cp $out/check_${pid}_thorough.txt $out/check_$pid.txt; fi
-  fi
-fi
-if [ -z "$hits" ] || { ! grep -q "^VIOLATION" $out/check_$pid.txt && grep -q "no obligation was generated" $out/check_$pid.txt; }; then
-  (cd $V && python3 check.py $pid --tier $tier > $out/check_$pid.txt 2>$out/check_$pid.err; echo "exit=$? (tier $tier, full check; native sweep flagged nothing the restricted runs could decide)" >> $out/check_$pid.txt)
-fi
-|if [ -n "$hits" ]; then
-  (cd $V && VERIF_ONLY="$hits" python3 check.py $pid --tier $tier > $out/check_$pid.txt 2>$out/check_$pid.err; echo "exit=$? (tier $tier, restricted to the harnesses the native sweep flagged: $hits)" >> $out/check_$pid.txt)
-  if ! grep -q "^VIOLATION" $out/check_$pid.txt && [ "$tier" = quick ]; then
-    # the flagged harnesses may belong to the thorough tier only (larger bounds, slow ones)
-    (cd $V && VERIF_ONLY="$hits" python3 check.py $pid --tier thorough > $out/check_${pid}_thorough.txt 2>$out/check_${pid}_thorough.err; echo "exit=$? (tier thorough, restricted to the harnesses the native sweep flagged: $hits)" >> $out/check_${pid}_thorough.txt)
-    if grep -q "^VIOLATION" $out/check_${pid}_thorough.txt; then cp $out/check_${pid}_thorough.txt $out/check_$pid.txt; fi
-  fi
-fi
-if [ -z "$hits" ] || { ! grep -q "^VIOLATION" $out/check_$pid.txt && grep -q "no obligation was generated" $out/check_$pid.txt; }; then
-  (cd $V && python3 check.py $pid --tier $tier > $out/check_$pid.txt 2>$out/check_$pid.err; echo "exit=$? (tier $tier, full check; native sweep flagged nothing the restricted runs could decide)" >> $out/check_$pid.txt)
-fi
- if [ -n "$hits" ]; then
-  (cd $V && VERIF_ONLY="$hits" python3 check.py $pid --tier $tier > $out/check_$pid.txt 2>$out/check_$pid.err; echo "exit=$? (tier $tier, restricted to the harnesses the native sweep flagged: $hits)" >> $out/check_$pid.txt)
-  if ! grep -q "^VIOLATION" $out/check_$pid.txt && [ "$tier" = quick ]; then
-    # the flagged harnesses may belong to the thorough tier only (larger bounds, slow ones)
-    (cd $V && VERIF_ONLY="$hits" python3 check.py $pid --tier thorough > $out/check_${pid}_thorough.txt 2>$out/check_${pid}_thorough.err; echo "exit=$? (tier thorough, restricted to the harnesses the native sweep flagged: $hits)" >> $out/check_${pid}_thorough.txt)
-    if grep -q "^VIOLATION" $out/check_${pid}_thorough.txt; then cp $out/check_${pid}_thorough.txt $out/check_$pid.txt; fi
-  fi
-fi
-if [ -z "$hits" ] || { ! grep -q "^VIOLATION" $out/check_$pid.txt && grep -q "no obligation was generated" $out/check_$pid.txt; }; then
-  (cd $V && python3 check.py $pid --tier $tier > $out/check_$pid.txt 2>$out/check_$pid.err; echo "exit=$? (tier $tier, full check; native sweep flagged nothing the restricted runs could decide)" >> $out/check_$pid.txt)
-fi
-pif [ -n "$hits" ]; then
-  (cd $V && VERIF_ONLY="$hits" python3 check.py $pid --tier $tier > $out/check_$pid.txt 2>$out/check_$pid.err; echo "exit=$? (tier $tier, restricted to the harnesses the native sweep flagged: $hits)" >> $out/check_$pid.txt)
-  if ! grep -q "^VIOLATION" $out/check_$pid.txt && [ "$tier" = quick ]; then
-    # the flagged harnesses may belong to the thorough tier only (larger bounds, slow ones)
-    (cd $V && VERIF_ONLY="$hits" python3 check.py $pid --tier thorough > $out/check_${pid}_thorough.txt 2>$out/check_${pid}_thorough.err; echo "exit=$? (tier thorough, restricted to the harnesses the native sweep flagged: $hits)" >> $out/check_${pid}_thorough.txt)
-    if grep -q "^VIOLATION" $out/check_${pid}_thorough.txt; then cp $out/check_${pid}_thorough.txt $out/check_$pid.txt; fi
-  fi
-fi
-if [ -z "$hits" ] || { ! grep -q "^VIOLATION" $out/check_$pid.txt && grep -q "no obligation was generated" $out/check_$pid.txt; }; then
-  (cd $V && python3 check.py $pid --tier $tier > $out/check_$pid.txt 2>$out/check_$pid.err; echo "exit=$? (tier $tier, full check; native sweep flagged nothing the restricted runs could decide)" >> $out/check_$pid.txt)
-fi
-yif [ -n "$hits" ]; then
-  (cd $V && VERIF_ONLY="$hits" python3 check.py $pid --tier $tier > $out/check_$pid.txt 2>$out/check_$pid.err; echo "exit=$? (tier $tier, restricted to the harnesses the native sweep flagged: $hits)" >> $out/check_$pid.txt)
-  if ! grep -q "^VIOLATION" $out/check_$pid.txt && [ "$tier" = quick ]; then
-    # the flagged harnesses may belong to the thorough tier only (larger bounds, slow ones)
-    (cd $V && VERIF_ONLY="$hits" python3 check.py $pid --tier thorough > $out/check_${pid}_thorough.txt 2>$out/check_${pid}_thorough.err; echo "exit=$? (tier thorough, restricted to the harnesses the native sweep flagged: $hits)" >> $out/check_${pid}_thorough.txt)
-    if grep -q "^VIOLATION" $out/check_${pid}_thorough.txt; then cp $out/check_${pid}_thorough.txt $out/check_$pid.txt; fi
-  fi
-fi
-if [ -z "$hits" ] || { ! grep -q "^VIOLATION" $out/check_$pid.txt && grep -q "no obligation was generated" $out/check_$pid.txt; }; then
-  (cd $V && python3 check.py $pid --tier $tier > $out/check_$pid.txt 2>$out/check_$pid.err; echo "exit=$? (tier $tier, full check; native sweep flagged nothing the restricted runs could decide)" >> $out/check_$pid.txt)
-fi
-tif [ -n "$hits" ]; then
-  (cd $V && VERIF_ONLY="$hits" python3 check.py $pid --tier $tier > $out/check_$pid.txt 2>$out/check_$pid.err; echo "exit=$? (tier $tier, restricted to the harnesses the native sweep flagged: $hits)" >> $out/check_$pid.txt)
-  if ! grep -q "^VIOLATION" $out/check_$pid.txt && [ "$tier" = quick ]; then
-    # the flagged harnesses may belong to the thorough tier only (larger bounds, slow ones)
-    (cd $V && VERIF_ONLY="$hits" python3 check.py $pid --tier thorough > $out/check_${pid}_thorough.txt 2>$out/check_${pid}_thorough.err; echo "exit=$? (tier thorough, restricted to the harnesses the native sweep flagged: $hits)" >> $out/check_${pid}_thorough.txt)
-    if grep -q "^VIOLATION" $out/check_${pid}_thorough.txt; then cp $out/check_${pid}_thorough.txt $out/check_$pid.txt; fi
-  fi
-fi
-if [ -z "$hits" ] || { ! grep -q "^VIOLATION" $out/check_$pid.txt && grep -q "no obligation was generated" $out/check_$pid.txt; }; then
-  (cd $V && python3 check.py $pid --tier $tier > $out/check_$pid.txt 2>$out/check_$pid.err; echo "exit=$? (tier $tier, full check; native sweep flagged nothing the restricted runs could decide)" >> $out/check_$pid.txt)
-fi
-hif [ -n "$hits" ]; then
-  (cd $V && VERIF_ONLY="$hits" python3 check.py $pid --tier $tier > $out/check_$pid.txt 2>$out/check_$pid.err; echo "exit=$? (tier $tier, restricted to the harnesses the native sweep flagged: $hits)" >> $out/check_$pid.txt)
-  if ! grep -q "^VIOLATION" $out/check_$pid.txt && [ "$tier" = quick ]; then
-    # the flagged harnesses may belong to the thorough tier only (larger bounds, slow ones)
-    (cd $V && VERIF_ONLY="$hits" python3 check.py $pid --tier thorough > $out/check_${pid}_thorough.txt 2>$out/check_${pid}_thorough.err; echo "exit=$? (tier thorough, restricted to the harnesses the native sweep flagged: $hits)" >> $out/check_${pid}_thorough.txt)
-    if grep -q "^VIOLATION" $out/check_${pid}_thorough.txt; then cp $out/check_${pid}_thorough.txt $out/check_$pid.txt; fi
-  fi
-fi
-if [ -z "$hits" ] || { ! grep -q "^VIOLATION" $out/check_$pid.txt && grep -q "no obligation was generated" $out/check_$pid.txt; }; then
-  (cd $V && python3 check.py $pid --tier $tier > $out/check_$pid.txt 2>$out/check_$pid.err; echo "exit=$? (tier $tier, full check; native sweep flagged nothing the restricted runs could decide)" >> $out/check_$pid.txt)
-fi
-oif [ -n "$hits" ]; then
-  (cd $V && VERIF_ONLY="$hits" python3 check.py $pid --tier $tier > $out/check_$pid.txt 2>$out/check_$pid.err; echo "exit=$? (tier $tier, restricted to the harnesses the native sweep flagged: $hits)" >> $out/check_$pid.txt)
-  if ! grep -q "^VIOLATION" $out/check_$pid.txt && [ "$tier" = quick ]; then
-    # the flagged harnesses may belong to the thorough tier only (larger bounds, slow ones)
-    (cd $V && VERIF_ONLY="$hits" python3 check.py $pid --tier thorough > $out/check_${pid}_thorough.txt 2>$out/check_${pid}_thorough.err; echo "exit=$? (tier thorough, restricted to the harnesses the native sweep flagged: $hits)" >> $out/check_${pid}_thorough.txt)
-    if grep -q "^VIOLATION" $out/check_${pid}_thorough.txt; then cp $out/check_${pid}_thorough.txt $out/check_$pid.txt; fi
-  fi
-fi
-if [ -z "$hits" ] || { ! grep -q "^VIOLATION" $out/check_$pid.txt && grep -q "no obligation was generated" $out/check_$pid.txt; }; then
-  (cd $V && python3 check.py $pid --tier $tier > $out/check_$pid.txt 2>$out/check_$pid.err; echo "exit=$? (tier $tier, full check; native sweep flagged nothing the restricted runs could decide)" >> $out/check_$pid.txt)
-fi
-nif [ -n "$hits" ]; then
-  (cd $V && VERIF_ONLY="$hits" python3 check.py $pid --tier $tier > $out/check_$pid.txt 2>$out/check_$pid.err; echo "exit=$? (tier $tier, restricted to the harnesses the native sweep flagged: $hits)" >> $out/check_$pid.txt)
-  if ! grep -q "^VIOLATION" $out/check_$pid.txt && [ "$tier" = quick ]; then
-    # the flagged harnesses may belong to the thorough tier only (larger bounds, slow ones)
-    (cd $V && VERIF_ONLY="$hits" python3 check.py $pid --tier thorough > $out/check_${pid}_thorough.txt 2>$out/check_${pid}_thorough.err; echo "exit=$? (tier thorough, restricted to the harnesses the native sweep flagged: $hits)" >> $out/check_${pid}_thorough.txt)
-    if grep -q "^VIOLATION" $out/check_${pid}_thorough.txt; then cp $out/check_${pid}_thorough.txt $out/check_$pid.txt; fi
-  fi
-fi
-if [ -z "$hits" ] || { ! grep -q "^VIOLATION" $out/check_$pid.txt && grep -q "no obligation was generated" $out/check_$pid.txt; }; then
-  (cd $V && python3 check.py $pid --tier $tier > $out/check_$pid.txt 2>$out/check_$pid.err; echo "exit=$? (tier $tier, full check; native sweep flagged nothing the restricted runs could decide)" >> $out/check_$pid.txt)
-fi
-3if [ -n "$hits" ]; then
-  (cd $V && VERIF_ONLY="$hits" python3 check.py $pid --tier $tier > $out/check_$pid.txt 2>$out/check_$pid.err; echo "exit=$? (tier $tier, restricted to the harnesses the native sweep flagged: $hits)" >> $out/check_$pid.txt)
-  if ! grep -q "^VIOLATION" $out/check_$pid.txt && [ "$tier" = quick ]; then
-    # the flagged harnesses may belong to the thorough tier only (larger bounds, slow ones)
-    (cd $V && VERIF_ONLY="$hits" python3 check.py $pid --tier thorough > $out/check_${pid}_thorough.txt 2>$out/check_${pid}_thorough.err; echo "exit=$? (tier thorough, restricted to the harnesses the native sweep flagged: $hits)" >> $out/check_${pid}_thorough.txt)
-    if grep -q "^VIOLATION" $out/check_${pid}_thorough.txt; then cp $out/check_${pid}_thorough.txt $out/check_$pid.txt; fi
-  fi
-fi
-if [ -z "$hits" ] || { ! grep -q "^VIOLATION" $out/check_$pid.txt && grep -q "no obligation was generated" $out/check_$pid.txt; }; then
-  (cd $V && python3 check.py $pid --tier $tier > $out/check_$pid.txt 2>$out/check_$pid.err; echo "exit=$? (tier $tier, full check; native sweep flagged nothing the restricted runs could decide)" >> $out/check_$pid.txt)
-fi
- if [ -n "$hits" ]; then
-  (cd $V && VERIF_ONLY="$hits" python3 check.py $pid --tier $tier > $out/check_$pid.txt 2>$out/check_$pid.err; echo "exit=$? (tier $tier, restricted to the harnesses the native sweep flagged: $hits)" >> $out/check_$pid.txt)
-  if ! grep -q "^VIOLATION" $out/check_$pid.txt && [ "$tier" = quick ]; then
-    # the flagged harnesses may belong to the thorough tier only (larger bounds, slow ones)
-    (cd $V && VERIF_ONLY="$hits" python3 check.py $pid --tier thorough > $out/check_${pid}_thorough.txt 2>$out/check_${pid}_thorough.err; echo "exit=$? (tier thorough, restricted to the harnesses the native sweep flagged: $hits)" >> $out/check_${pid}_thorough.txt)
-    if grep -q "^VIOLATION" $out/check_${pid}_thorough.txt; then cp $out/check_${pid}_thorough.txt $out/check_$pid.txt; fi
-  fi
-fi
-if [ -z "$hits" ] || { ! grep -q "^VIOLATION" $out/check_$pid.txt && grep -q "no obligation was generated" $out/check_$pid.txt; }; then
-  (cd $V && python3 check.py $pid --tier $tier > $out/check_$pid.txt 2>$out/check_$pid.err; echo "exit=$? (tier $tier, full check; native sweep flagged nothing the restricted runs could decide)" >> $out/check_$pid.txt)
-fi
--if [ -n "$hits" ]; then
-  (cd $V && VERIF_ONLY="$hits" python3 check.py $pid --tier $tier > $out/check_$pid.txt 2>$out/check_$pid.err; echo "exit=$? (tier $tier, restricted to the harnesses the native sweep flagged: $hits)" >> $out/check_$pid.txt)
-  if ! grep -q "^VIOLATION" $out/check_$pid.txt && [ "$tier" = quick ]; then
-    # the flagged harnesses may belong to the thorough tier only (larger bounds, slow ones)
-    (cd $V && VERIF_ONLY="$hits" python3 check.py $pid --tier thorough > $out/check_${pid}_thorough.txt 2>$out/check_${pid}_thorough.err; echo "exit=$? (tier thorough, restricted to the harnesses the native sweep flagged: $hits)" >> $out/check_${pid}_thorough.txt)
-    if grep -q "^VIOLATION" $out/check_${pid}_thorough.txt; then cp $out/check_${pid}_thorough.txt $out/check_$pid.txt; fi
-  fi
-fi
-if [ -z "$hits" ] || { ! grep -q "^VIOLATION" $out/check_$pid.txt && grep -q "no obligation was generated" $out/check_$pid.txt; }; then
-  (cd $V && python3 check.py $pid --tier $tier > $out/check_$pid.txt 2>$out/check_$pid.err; echo "exit=$? (tier $tier, full check; native sweep flagged nothing the restricted runs could decide)" >> $out/check_$pid.txt)
-fi
-cif [ -n "$hits" ]; then
-  (cd $V && VERIF_ONLY="$hits" python3 check.py $pid --tier $tier > $out/check_$pid.txt 2>$out/check_$pid.err; echo "exit=$? (tier $tier, restricted to the harnesses the native sweep flagged: $hits)" >> $out/check_$pid.txt)
-  if ! grep -q "^VIOLATION" $out/check_$pid.txt && [ "$tier" = quick ]; then
-    # the flagged harnesses may belong to the thorough tier only (larger bounds, slow ones)
-    (cd $V && VERIF_ONLY="$hits" python3 check.py $pid --tier thorough > $out/check_${pid}_thorough.txt 2>$out/check_${pid}_thorough.err; echo "exit=$? (tier thorough, restricted to the harnesses the native sweep flagged: $hits)" >> $out/check_${pid}_thorough.txt)
-    if grep -q "^VIOLATION" $out/check_${pid}_thorough.txt; then cp $out/check_${pid}_thorough.txt $out/check_$pid.txt; fi
-  fi
-fi
-if [ -z "$hits" ] || { ! grep -q "^VIOLATION" $out/check_$pid.txt && grep -q "no obligation was generated" $out/check_$pid.txt; }; then
-  (cd $V && python3 check.py $pid --tier $tier > $out/check_$pid.txt 2>$out/check_$pid.err; echo "exit=$? (tier $tier, full check; native sweep flagged nothing the restricted runs could decide)" >> $out/check_$pid.txt)
-fi
- if [ -n "$hits" ]; then
-  (cd $V && VERIF_ONLY="$hits" python3 check.py $pid --tier $tier > $out/check_$pid.txt 2>$out/check_$pid.err; echo "exit=$? (tier $tier, restricted to the harnesses the native sweep flagged: $hits)" >> $out/check_$pid.txt)
-  if ! grep -q "^VIOLATION" $out/check_$pid.txt && [ "$tier" = quick ]; then
-    # the flagged harnesses may belong to the thorough tier only (larger bounds, slow ones)
-    (cd $V && VERIF_ONLY="$hits" python3 check.py $pid --tier thorough > $out/check_${pid}_thorough.txt 2>$out/check_${pid}_thorough.err; echo "exit=$? (tier thorough, restricted to the harnesses the native sweep flagged: $hits)" >> $out/check_${pid}_thorough.txt)
-    if grep -q "^VIOLATION" $out/check_${pid}_thorough.txt; then cp $out/check_${pid}_thorough.txt $out/check_$pid.txt; fi
-  fi
-fi
-if [ -z "$hits" ] || { ! grep -q "^VIOLATION" $out/check_$pid.txt && grep -q "no obligation was generated" $out/check_$pid.txt; }; then
-  (cd $V && python3 check.py $pid --tier $tier > $out/check_$pid.txt 2>$out/check_$pid.err; echo "exit=$? (tier $tier, full check; native sweep flagged nothing the restricted runs could decide)" >> $out/check_$pid.txt)
-fi
-"if [ -n "$hits" ]; then
-  (cd $V && VERIF_ONLY="$hits" python3 check.py $pid --tier $tier > $out/check_$pid.txt 2>$out/check_$pid.err; echo "exit=$? (tier $tier, restricted to the harnesses the native sweep flagged: $hits)" >> $out/check_$pid.txt)
-  if ! grep -q "^VIOLATION" $out/check_$pid.txt && [ "$tier" = quick ]; then
-    # the flagged harnesses may belong to the thorough tier only (larger bounds, slow ones)
-    (cd $V && VERIF_ONLY="$hits" python3 check.py $pid --tier thorough > $out/check_${pid}_thorough.txt 2>$out/check_${pid}_thorough.err; echo "exit=$? (tier thorough, restricted to the harnesses the native sweep flagged: $hits)" >> $out/check_${pid}_thorough.txt)
-    if grep -q "^VIOLATION" $out/check_${pid}_thorough.txt; then cp $out/check_${pid}_thorough.txt $out/check_$pid.txt; fi
-  fi
-fi
-if [ -z "$hits" ] || { ! grep -q "^VIOLATION" $out/check_$pid.txt && grep -q "no obligation was generated" $out/check_$pid.txt; }; then
-  (cd $V && python3 check.py $pid --tier $tier > $out/check_$pid.txt 2>$out/check_$pid.err; echo "exit=$? (tier $tier, full check; native sweep flagged nothing the restricted runs could decide)" >> $out/check_$pid.txt)
-fi
-iif [ -n "$hits" ]; then
-  (cd $V && VERIF_ONLY="$hits" python3 check.py $pid --tier $tier > $out/check_$pid.txt 2>$out/check_$pid.err; echo "exit=$? (tier $tier, restricted to the harnesses the native sweep flagged: $hits)" >> $out/check_$pid.txt)
-  if ! grep -q "^VIOLATION" $out/check_$pid.txt && [ "$tier" = quick ]; then
-    # the flagged harnesses may belong to the thorough tier only (larger bounds, slow ones)
-    (cd $V && VERIF_ONLY="$hits" python3 check.py $pid --tier thorough > $out/check_${pid}_thorough.txt 2>$out/check_${pid}_thorough.err; echo "exit=$? (tier thorough, restricted to the harnesses the native sweep flagged: $hits)" >> $out/check_${pid}_thorough.txt)
-    if grep -q "^VIOLATION" $out/check_${pid}_thorough.txt; then cp $out/check_${pid}_thorough.txt $out/check_$pid.txt; fi
-  fi
-fi
-if [ -z "$hits" ] || { ! grep -q "^VIOLATION" $out/check_$pid.txt && grep -q "no obligation was generated" $out/check_$pid.txt; }; then
-  (cd $V && python3 check.py $pid --tier $tier > $out/check_$pid.txt 2>$out/check_$pid.err; echo "exit=$? (tier $tier, full check; native sweep flagged nothing the restricted runs could decide)" >> $out/check_$pid.txt)
-fi
-mif [ -n "$hits" ]; then
-  (cd $V && VERIF_ONLY="$hits" python3 check.py $pid --tier $tier > $out/check_$pid.txt 2>$out/check_$pid.err; echo "exit=$? (tier $tier, restricted to the harnesses the native sweep flagged: $hits)" >> $out/check_$pid.txt)
-  if ! grep -q "^VIOLATION" $out/check_$pid.txt && [ "$tier" = quick ]; then
-    # the flagged harnesses may belong to the thorough tier only (larger bounds, slow ones)
-    (cd $V && VERIF_ONLY="$hits" python3 check.py $pid --tier thorough > $out/check_${pid}_thorough.txt 2>$out/check_${pid}_thorough.err; echo "exit=$? (tier thorough, restricted to the harnesses the native sweep flagged: $hits)" >> $out/check_${pid}_thorough.txt)
-    if grep -q "^VIOLATION" $out/check_${pid}_thorough.txt; then cp $out/check_${pid}_thorough.txt $out/check_$pid.txt; fi
-  fi
-fi
-if [ -z "$hits" ] || { ! grep -q "^VIOLATION" $out/check_$pid.txt && grep -q "no obligation was generated" $out/check_$pid.txt; }; then
-  (cd $V && python3 check.py $pid --tier $tier > $out/check_$pid.txt 2>$out/check_$pid.err; echo "exit=$? (tier $tier, full check; native sweep flagged nothing the restricted runs could decide)" >> $out/check_$pid.txt)
-fi
-pif [ -n "$hits" ]; then
-  (cd $V && VERIF_ONLY="$hits" python3 check.py $pid --tier $tier > $out/check_$pid.txt 2>$out/check_$pid.err; echo "exit=$? (tier $tier, restricted to the harnesses the native sweep flagged: $hits)" >> $out/check_$pid.txt)
-  if ! grep -q "^VIOLATION" $out/check_$pid.txt && [ "$tier" = quick ]; then
-    # the flagged harnesses may belong to the thorough tier only (larger bounds, slow ones)
-    (cd $V && VERIF_ONLY="$hits" python3 check.py $pid --tier thorough > $out/check_${pid}_thorough.txt 2>$out/check_${pid}_thorough.err; echo "exit=$? (tier thorough, restricted to the harnesses the native sweep flagged: $hits)" >> $out/check_${pid}_thorough.txt)
-    if grep -q "^VIOLATION" $out/check_${pid}_thorough.txt; then cp $out/check_${pid}_thorough.txt $out/check_$pid.txt; fi
-  fi
-fi
-if [ -z "$hits" ] || { ! grep -q "^VIOLATION" $out/check_$pid.txt && grep -q "no obligation was generated" $out/check_$pid.txt; }; then
-  (cd $V && python3 check.py $pid --tier $tier > $out/check_$pid.txt 2>$out/check_$pid.err; echo "exit=$? (tier $tier, full check; native sweep flagged nothing the restricted runs could decide)" >> $out/check_$pid.txt)
-fi
-oif [ -n "$hits" ]; then
-  (cd $V && VERIF_ONLY="$hits" python3 check.py $pid --tier $tier > $out/check_$pid.txt 2>$out/check_$pid.err; echo "exit=$? (tier $tier, restricted to the harnesses the native sweep flagged: $hits)" >> $out/check_$pid.txt)
-  if ! grep -q "^VIOLATION" $out/check_$pid.txt && [ "$tier" = quick ]; then
-    # the flagged harnesses may belong to the thorough tier only (larger bounds, slow ones)
-    (cd $V && VERIF_ONLY="$hits" python3 check.py $pid --tier thorough > $out/check_${pid}_thorough.txt 2>$out/check_${pid}_thorough.err; echo "exit=$? (tier thorough, restricted to the harnesses the native sweep flagged: $hits)" >> $out/check_${pid}_thorough.txt)
-    if grep -q "^VIOLATION" $out/check_${pid}_thorough.txt; then cp $out/check_${pid}_thorough.txt $out/check_$pid.txt; fi
-  fi
-fi
-if [ -z "$hits" ] || { ! grep -q "^VIOLATION" $out/check_$pid.txt && grep -q "no obligation was generated" $out/check_$pid.txt; }; then
-  (cd $V && python3 check.py $pid --tier $tier > $out/check_$pid.txt 2>$out/check_$pid.err; echo "exit=$? (tier $tier, full check; native sweep flagged nothing the restricted runs could decide)" >> $out/check_$pid.txt)
-fi
-rif [ -n "$hits" ]; then
-  (cd $V && VERIF_ONLY="$hits" python3 check.py $pid --tier $tier > $out/check_$pid.txt 2>$out/check_$pid.err; echo "exit=$? (tier $tier, restricted to the harnesses the native sweep flagged: $hits)" >> $out/check_$pid.txt)
-  if ! grep -q "^VIOLATION" $out/check_$pid.txt && [ "$tier" = quick ]; then
-    # the flagged harnesses may belong to the thorough tier only (larger bounds, slow ones)
-    (cd $V && VERIF_ONLY="$hits" python3 check.py $pid --tier thorough > $out/check_${pid}_thorough.txt 2>$out/check_${pid}_thorough.err; echo "exit=$? (tier thorough, restricted to the harnesses the native sweep flagged: $hits)" >> $out/check_${pid}_thorough.txt)
-    if grep -q "^VIOLATION" $out/check_${pid}_thorough.txt; then cp $out/check_${pid}_thorough.txt $out/check_$pid.txt; fi
-  fi
-fi
-if [ -z "$hits" ] || { ! grep -q "^VIOLATION" $out/check_$pid.txt && grep -q "no obligation was generated" $out/check_$pid.txt; }; then
-  (cd $V && python3 check.py $pid --tier $tier > $out/check_$pid.txt 2>$out/check_$pid.err; echo "exit=$? (tier $tier, full check; native sweep flagged nothing the restricted runs could decide)" >> $out/check_$pid.txt)
-fi
-tif [ -n "$hits" ]; then
-  (cd $V && VERIF_ONLY="$hits" python3 check.py $pid --tier $tier > $out/check_$pid.txt 2>$out/check_$pid.err; echo "exit=$? (tier $tier, restricted to the harnesses the native sweep flagged: $hits)" >> $out/check_$pid.txt)
-  if ! grep -q "^VIOLATION" $out/check_$pid.txt && [ "$tier" = quick ]; then
-    # the flagged harnesses may belong to the thorough tier only (larger bounds, slow ones)
-    (cd $V && VERIF_ONLY="$hits" python3 check.py $pid --tier thorough > $out/check_${pid}_thorough.txt 2>$out/check_${pid}_thorough.err; echo "exit=$? (tier thorough, restricted to the harnesses the native sweep flagged: $hits)" >> $out/check_${pid}_thorough.txt)
-    if grep -q "^VIOLATION" $out/check_${pid}_thorough.txt; then cp $out/check_${pid}_thorough.txt $out/check_$pid.txt; fi
-  fi
-fi
-if [ -z "$hits" ] || { ! grep -q "^VIOLATION" $out/check_$pid.txt && grep -q "no obligation was generated" $out/check_$pid.txt; }; then
-  (cd $V && python3 check.py $pid --tier $tier > $out/check_$pid.txt 2>$out/check_$pid.err; echo "exit=$? (tier $tier, full check; native sweep flagged nothing the restricted runs could decide)" >> $out/check_$pid.txt)
-fi
- if [ -n "$hits" ]; then
-  (cd $V && VERIF_ONLY="$hits" python3 check.py $pid --tier $tier > $out/check_$pid.txt 2>$out/check_$pid.err; echo "exit=$? (tier $tier, restricted to the harnesses the native sweep flagged: $hits)" >> $out/check_$pid.txt)
-  if ! grep -q "^VIOLATION" $out/check_$pid.txt && [ "$tier" = quick ]; then
-    # the flagged harnesses may belong to the thorough tier only (larger bounds, slow ones)
-    (cd $V && VERIF_ONLY="$hits" python3 check.py $pid --tier thorough > $out/check_${pid}_thorough.txt 2>$out/check_${pid}_thorough.err; echo "exit=$? (tier thorough, restricted to the harnesses the native sweep flagged: $hits)" >> $out/check_${pid}_thorough.txt)
-    if grep -q "^VIOLATION" $out/check_${pid}_thorough.txt; then cp $out/check_${pid}_thorough.txt $out/check_$pid.txt; fi
-  fi
-fi
-if [ -z "$hits" ] || { ! grep -q "^VIOLATION" $out/check_$pid.txt && grep -q "no obligation was generated" $out/check_$pid.txt; }; then
-  (cd $V && python3 check.py $pid --tier $tier > $out/check_$pid.txt 2>$out/check_$pid.err; echo "exit=$? (tier $tier, full check; native sweep flagged nothing the restricted runs could decide)" >> $out/check_$pid.txt)
-fi
-jif [ -n "$hits" ]; then
-  (cd $V && VERIF_ONLY="$hits" python3 check.py $pid --tier $tier > $out/check_$pid.txt 2>$out/check_$pid.err; echo "exit=$? (tier $tier, restricted to the harnesses the native sweep flagged: $hits)" >> $out/check_$pid.txt)
-  if ! grep -q "^VIOLATION" $out/check_$pid.txt && [ "$tier" = quick ]; then
-    # the flagged harnesses may belong to the thorough tier only (larger bounds, slow ones)
-    (cd $V && VERIF_ONLY="$hits" python3 check.py $pid --tier thorough > $out/check_${pid}_thorough.txt 2>$out/check_${pid}_thorough.err; echo "exit=$? (tier thorough, restricted to the harnesses the native sweep flagged: $hits)" >> $out/check_${pid}_thorough.txt)
-    if grep -q "^VIOLATION" $out/check_${pid}_thorough.txt; then cp $out/check_${pid}_thorough.txt $out/check_$pid.txt; fi
-  fi
-fi
-if [ -z "$hits" ] || { ! grep -q "^VIOLATION" $out/check_$pid.txt && grep -q "no obligation was generated" $out/check_$pid.txt; }; then
-  (cd $V && python3 check.py $pid --tier $tier > $out/check_$pid.txt 2>$out/check_$pid.err; echo "exit=$? (tier $tier, full check; native sweep flagged nothing the restricted runs could decide)" >> $out/check_$pid.txt)
-fi
-sif [ -n "$hits" ]; then
-  (cd $V && VERIF_ONLY="$hits" python3 check.py $pid --tier $tier > $out/check_$pid.txt 2>$out/check_$pid.err; echo "exit=$? (tier $tier, restricted to the harnesses the native sweep flagged: $hits)" >> $out/check_$pid.txt)
-  if ! grep -q "^VIOLATION" $out/check_$pid.txt && [ "$tier" = quick ]; then
-    # the flagged harnesses may belong to the thorough tier only (larger bounds, slow ones)
-    (cd $V && VERIF_ONLY="$hits" python3 check.py $pid --tier thorough > $out/check_${pid}_thorough.txt 2>$out/check_${pid}_thorough.err; echo "exit=$? (tier thorough, restricted to the harnesses the native sweep flagged: $hits)" >> $out/check_${pid}_thorough.txt)
-    if grep -q "^VIOLATION" $out/check_${pid}_thorough.txt; then cp $out/check_${pid}_thorough.txt $out/check_$pid.txt; fi
-  fi
-fi
-if [ -z "$hits" ] || { ! grep -q "^VIOLATION" $out/check_$pid.txt && grep -q "no obligation was generated" $out/check_$pid.txt; }; then
-  (cd $V && python3 check.py $pid --tier $tier > $out/check_$pid.txt 2>$out/check_$pid.err; echo "exit=$? (tier $tier, full check; native sweep flagged nothing the restricted runs could decide)" >> $out/check_$pid.txt)
-fi
-oif [ -n "$hits" ]; then
-  (cd $V && VERIF_ONLY="$hits" python3 check.py $pid --tier $tier > $out/check_$pid.txt 2>$out/check_$pid.err; echo "exit=$? (tier $tier, restricted to the harnesses the native sweep flagged: $hits)" >> $out/check_$pid.txt)
-  if ! grep -q "^VIOLATION" $out/check_$pid.txt && [ "$tier" = quick ]; then
-    # the flagged harnesses may belong to the thorough tier only (larger bounds, slow ones)
-    (cd $V && VERIF_ONLY="$hits" python3 check.py $pid --tier thorough > $out/check_${pid}_thorough.txt 2>$out/check_${pid}_thorough.err; echo "exit=$? (tier thorough, restricted to the harnesses the native sweep flagged: $hits)" >> $out/check_${pid}_thorough.txt)
-    if grep -q "^VIOLATION" $out/check_${pid}_thorough.txt; then cp $out/check_${pid}_thorough.txt $out/check_$pid.txt; fi
-  fi
-fi
-if [ -z "$hits" ] || { ! grep -q "^VIOLATION" $out/check_$pid.txt && grep -q "no obligation was generated" $out/check_$pid.txt; }; then
-  (cd $V && python3 check.py $pid --tier $tier > $out/check_$pid.txt 2>$out/check_$pid.err; echo "exit=$? (tier $tier, full check; native sweep flagged nothing the restricted runs could decide)" >> $out/check_$pid.txt)
-fi
-nif [ -n "$hits" ]; then
-  (cd $V && VERIF_ONLY="$hits" python3 check.py $pid --tier $tier > $out/check_$pid.txt 2>$out/check_$pid.err; echo "exit=$? (tier $tier, restricted to the harnesses the native sweep flagged: $hits)" >> $out/check_$pid.txt)
-  if ! grep -q "^VIOLATION" $out/check_$pid.txt && [ "$tier" = quick ]; then
-    # the flagged harnesses may belong to the thorough tier only (larger bounds, slow ones)
-    (cd $V && VERIF_ONLY="$hits" python3 check.py $pid --tier thorough > $out/check_${pid}_thorough.txt 2>$out/check_${pid}_thorough.err; echo "exit=$? (tier thorough, restricted to the harnesses the native sweep flagged: $hits)" >> $out/check_${pid}_thorough.txt)
-    if grep -q "^VIOLATION" $out/check_${pid}_thorough.txt; then cp $out/check_${pid}_thorough.txt $out/check_$pid.txt; fi
-  fi
-fi
-if [ -z "$hits" ] || { ! grep -q "^VIOLATION" $out/check_$pid.txt && grep -q "no obligation was generated" $out/check_$pid.txt; }; then
-  (cd $V && python3 check.py $pid --tier $tier > $out/check_$pid.txt 2>$out/check_$pid.err; echo "exit=$? (tier $tier, full check; native sweep flagged nothing the restricted runs could decide)" >> $out/check_$pid.txt)
-fi
-,if [ -n "$hits" ]; then
-  (cd $V && VERIF_ONLY="$hits" python3 check.py $pid --tier $tier > $out/check_$pid.txt 2>$out/check_$pid.err; echo "exit=$? (tier $tier, restricted to the harnesses the native sweep flagged: $hits)" >> $out/check_$pid.txt)
-  if ! grep -q "^VIOLATION" $out/check_$pid.txt && [ "$tier" = quick ]; then
-    # the flagged harnesses may belong to the thorough tier only (larger bounds, slow ones)
-    (cd $V && VERIF_ONLY="$hits" python3 check.py $pid --tier thorough > $out/check_${pid}_thorough.txt 2>$out/check_${pid}_thorough.err; echo "exit=$? (tier thorough, restricted to the harnesses the native sweep flagged: $hits)" >> $out/check_${pid}_thorough.txt)
-    if grep -q "^VIOLATION" $out/check_${pid}_thorough.txt; then cp $out/check_${pid}_thorough.txt $out/check_$pid.txt; fi
-  fi
-fi
-if [ -z "$hits" ] || { ! grep -q "^VIOLATION" $out/check_$pid.txt && grep -q "no obligation was generated" $out/check_$pid.txt; }; then
-  (cd $V && python3 check.py $pid --tier $tier > $out/check_$pid.txt 2>$out/check_$pid.err; echo "exit=$? (tier $tier, full check; native sweep flagged nothing the restricted runs could decide)" >> $out/check_$pid.txt)
-fi
-sif [ -n "$hits" ]; then
-  (cd $V && VERIF_ONLY="$hits" python3 check.py $pid --tier $tier > $out/check_$pid.txt 2>$out/check_$pid.err; echo "exit=$? (tier $tier, restricted to the harnesses the native sweep flagged: $hits)" >> $out/check_$pid.txt)
-  if ! grep -q "^VIOLATION" $out/check_$pid.txt && [ "$tier" = quick ]; then
-    # the flagged harnesses may belong to the thorough tier only (larger bounds, slow ones)
-    (cd $V && VERIF_ONLY="$hits" python3 check.py $pid --tier thorough > $out/check_${pid}_thorough.txt 2>$out/check_${pid}_thorough.err; echo "exit=$? (tier thorough, restricted to the harnesses the native sweep flagged: $hits)" >> $out/check_${pid}_thorough.txt)
-    if grep -q "^VIOLATION" $out/check_${pid}_thorough.txt; then cp $out/check_${pid}_thorough.txt $out/check_$pid.txt; fi
-  fi
-fi
-if [ -z "$hits" ] || { ! grep -q "^VIOLATION" $out/check_$pid.txt && grep -q "no obligation was generated" $out/check_$pid.txt; }; then
-  (cd $V && python3 check.py $pid --tier $tier > $out/check_$pid.txt 2>$out/check_$pid.err; echo "exit=$? (tier $tier, full check; native sweep flagged nothing the restricted runs could decide)" >> $out/check_$pid.txt)
-fi
-yif [ -n "$hits" ]; then
-  (cd $V && VERIF_ONLY="$hits" python3 check.py $pid --tier $tier > $out/check_$pid.txt 2>$out/check_$pid.err; echo "exit=$? (tier $tier, restricted to the harnesses the native sweep flagged: $hits)" >> $out/check_$pid.txt)
-  if ! grep -q "^VIOLATION" $out/check_$pid.txt && [ "$tier" = quick ]; then
-    # the flagged harnesses may belong to the thorough tier only (larger bounds, slow ones)
-    (cd $V && VERIF_ONLY="$hits" python3 check.py $pid --tier thorough > $out/check_${pid}_thorough.txt 2>$out/check_${pid}_thorough.err; echo "exit=$? (tier thorough, restricted to the harnesses the native sweep flagged: $hits)" >> $out/check_${pid}_thorough.txt)
-    if grep -q "^VIOLATION" $out/check_${pid}_thorough.txt; then cp $out/check_${pid}_thorough.txt $out/check_$pid.txt; fi
-  fi
-fi
-if [ -z "$hits" ] || { ! grep -q "^VIOLATION" $out/check_$pid.txt && grep -q "no obligation was generated" $out/check_$pid.txt; }; then
-  (cd $V && python3 check.py $pid --tier $tier > $out/check_$pid.txt 2>$out/check_$pid.err; echo "exit=$? (tier $tier, full check; native sweep flagged nothing the restricted runs could decide)" >> $out/check_$pid.txt)
-fi
-sif [ -n "$hits" ]; then
-  (cd $V && VERIF_ONLY="$hits" python3 check.py $pid --tier $tier > $out/check_$pid.txt 2>$out/check_$pid.err; echo "exit=$? (tier $tier, restricted to the harnesses the native sweep flagged: $hits)" >> $out/check_$pid.txt)
-  if ! grep -q "^VIOLATION" $out/check_$pid.txt && [ "$tier" = quick ]; then
-    # the flagged harnesses may belong to the thorough tier only (larger bounds, slow ones)
-    (cd $V && VERIF_ONLY="$hits" python3 check.py $pid --tier thorough > $out/check_${pid}_thorough.txt 2>$out/check_${pid}_thorough.err; echo "exit=$? (tier thorough, restricted to the harnesses the native sweep flagged: $hits)" >> $out/check_${pid}_thorough.txt)
-    if grep -q "^VIOLATION" $out/check_${pid}_thorough.txt; then cp $out/check_${pid}_thorough.txt $out/check_$pid.txt; fi
-  fi
-fi
-if [ -z "$hits" ] || { ! grep -q "^VIOLATION" $out/check_$pid.txt && grep -q "no obligation was generated" $out/check_$pid.txt; }; then
-  (cd $V && python3 check.py $pid --tier $tier > $out/check_$pid.txt 2>$out/check_$pid.err; echo "exit=$? (tier $tier, full check; native sweep flagged nothing the restricted runs could decide)" >> $out/check_$pid.txt)
-fi
-;if [ -n "$hits" ]; then
-  (cd $V && VERIF_ONLY="$hits" python3 check.py $pid --tier $tier > $out/check_$pid.txt 2>$out/check_$pid.err; echo "exit=$? (tier $tier, restricted to the harnesses the native sweep flagged: $hits)" >> $out/check_$pid.txt)
-  if ! grep -q "^VIOLATION" $out/check_$pid.txt && [ "$tier" = quick ]; then
-    # the flagged harnesses may belong to the thorough tier only (larger bounds, slow ones)
-    (cd $V && VERIF_ONLY="$hits" python3 check.py $pid --tier thorough > $out/check_${pid}_thorough.txt 2>$out/check_${pid}_thorough.err; echo "exit=$? (tier thorough, restricted to the harnesses the native sweep flagged: $hits)" >> $out/check_${pid}_thorough.txt)
-    if grep -q "^VIOLATION" $out/check_${pid}_thorough.txt; then cp $out/check_${pid}_thorough.txt $out/check_$pid.txt; fi
-  fi
-fi
-if [ -z "$hits" ] || { ! grep -q "^VIOLATION" $out/check_$pid.txt && grep -q "no obligation was generated" $out/check_$pid.txt; }; then
-  (cd $V && python3 check.py $pid --tier $tier > $out/check_$pid.txt 2>$out/check_$pid.err; echo "exit=$? (tier $tier, full check; native sweep flagged nothing the restricted runs could decide)" >> $out/check_$pid.txt)
-fi
- if [ -n "$hits" ]; then
-  (cd $V && VERIF_ONLY="$hits" python3 check.py $pid --tier $tier > $out/check_$pid.txt 2>$out/check_$pid.err; echo "exit=$? (tier $tier, restricted to the harnesses the native sweep flagged: $hits)" >> $out/check_$pid.txt)
-  if ! grep -q "^VIOLATION" $out/check_$pid.txt && [ "$tier" = quick ]; then
-    # the flagged harnesses may belong to the thorough tier only (larger bounds, slow ones)
-    (cd $V && VERIF_ONLY="$hits" python3 check.py $pid --tier thorough > $out/check_${pid}_thorough.txt 2>$out/check_${pid}_thorough.err; echo "exit=$? (tier thorough, restricted to the harnesses the native sweep flagged: $hits)" >> $out/check_${pid}_thorough.txt)
-    if grep -q "^VIOLATION" $out/check_${pid}_thorough.txt; then cp $out/check_${pid}_thorough.txt $out/check_$pid.txt; fi
-  fi
-fi
-if [ -z "$hits" ] || { ! grep -q "^VIOLATION" $out/check_$pid.txt && grep -q "no obligation was generated" $out/check_$pid.txt; }; then
-  (cd $V && python3 check.py $pid --tier $tier > $out/check_$pid.txt 2>$out/check_$pid.err; echo "exit=$? (tier $tier, full check; native sweep flagged nothing the restricted runs could decide)" >> $out/check_$pid.txt)
-fi
-lif [ -n "$hits" ]; then
-  (cd $V && VERIF_ONLY="$hits" python3 check.py $pid --tier $tier > $out/check_$pid.txt 2>$out/check_$pid.err; echo "exit=$? (tier $tier, restricted to the harnesses the native sweep flagged: $hits)" >> $out/check_$pid.txt)
-  if ! grep -q "^VIOLATION" $out/check_$pid.txt && [ "$tier" = quick ]; then
-    # the flagged harnesses may belong to the thorough tier only (larger bounds, slow ones)
-    (cd $V && VERIF_ONLY="$hits" python3 check.py $pid --tier thorough > $out/check_${pid}_thorough.txt 2>$out/check_${pid}_thorough.err; echo "exit=$? (tier thorough, restricted to the harnesses the native sweep flagged: $hits)" >> $out/check_${pid}_thorough.txt)
-    if grep -q "^VIOLATION" $out/check_${pid}_thorough.txt; then cp $out/check_${pid}_thorough.txt $out/check_$pid.txt; fi
-  fi
-fi
-if [ -z "$hits" ] || { ! grep -q "^VIOLATION" $out/check_$pid.txt && grep -q "no obligation was generated" $out/check_$pid.txt; }; then
-  (cd $V && python3 check.py $pid --tier $tier > $out/check_$pid.txt 2>$out/check_$pid.err; echo "exit=$? (tier $tier, full check; native sweep flagged nothing the restricted runs could decide)" >> $out/check_$pid.txt)
-fi
-=if [ -n "$hits" ]; then
-  (cd $V && VERIF_ONLY="$hits" python3 check.py $pid --tier $tier > $out/check_$pid.txt 2>$out/check_$pid.err; echo "exit=$? (tier $tier, restricted to the harnesses the native sweep flagged: $hits)" >> $out/check_$pid.txt)
-  if ! grep -q "^VIOLATION" $out/check_$pid.txt && [ "$tier" = quick ]; then
-    # the flagged harnesses may belong to the thorough tier only (larger bounds, slow ones)
-    (cd $V && VERIF_ONLY="$hits" python3 check.py $pid --tier thorough > $out/check_${pid}_thorough.txt 2>$out/check_${pid}_thorough.err; echo "exit=$? (tier thorough, restricted to the harnesses the native sweep flagged: $hits)" >> $out/check_${pid}_thorough.txt)
-    if grep -q "^VIOLATION" $out/check_${pid}_thorough.txt; then cp $out/check_${pid}_thorough.txt $out/check_$pid.txt; fi
-  fi
-fi
-if [ -z "$hits" ] || { ! grep -q "^VIOLATION" $out/check_$pid.txt && grep -q "no obligation was generated" $out/check_$pid.txt; }; then
-  (cd $V && python3 check.py $pid --tier $tier > $out/check_$pid.txt 2>$out/check_$pid.err; echo "exit=$? (tier $tier, full check; native sweep flagged nothing the restricted runs could decide)" >> $out/check_$pid.txt)
-fi
-jif [ -n "$hits" ]; then
-  (cd $V && VERIF_ONLY="$hits" python3 check.py $pid --tier $tier > $out/check_$pid.txt 2>$out/check_$pid.err; echo "exit=$? (tier $tier, restricted to the harnesses the native sweep flagged: $hits)" >> $out/check_$pid.txt)
-  if ! grep -q "^VIOLATION" $out/check_$pid.txt && [ "$tier" = quick ]; then
-    # the flagged harnesses may belong to the thorough tier only (larger bounds, slow ones)
-    (cd $V && VERIF_ONLY="$hits" python3 check.py $pid --tier thorough > $out/check_${pid}_thorough.txt 2>$out/check_${pid}_thorough.err; echo "exit=$? (tier thorough, restricted to the harnesses the native sweep flagged: $hits)" >> $out/check_${pid}_thorough.txt)
-    if grep -q "^VIOLATION" $out/check_${pid}_thorough.txt; then cp $out/check_${pid}_thorough.txt $out/check_$pid.txt; fi
-  fi
-fi
-if [ -z "$hits" ] || { ! grep -q "^VIOLATION" $out/check_$pid.txt && grep -q "no obligation was generated" $out/check_$pid.txt; }; then
-  (cd $V && python3 check.py $pid --tier $tier > $out/check_$pid.txt 2>$out/check_$pid.err; echo "exit=$? (tier $tier, full check; native sweep flagged nothing the restricted runs could decide)" >> $out/check_$pid.txt)
-fi
-sif [ -n "$hits" ]; then
-  (cd $V && VERIF_ONLY="$hits" python3 check.py $pid --tier $tier > $out/check_$pid.txt 2>$out/check_$pid.err; echo "exit=$? (tier $tier, restricted to the harnesses the native sweep flagged: $hits)" >> $out/check_$pid.txt)
-  if ! grep -q "^VIOLATION" $out/check_$pid.txt && [ "$tier" = quick ]; then
-    # the flagged harnesses may belong to the thorough tier only (larger bounds, slow ones)
-    (cd $V && VERIF_ONLY="$hits" python3 check.py $pid --tier thorough > $out/check_${pid}_thorough.txt 2>$out/check_${pid}_thorough.err; echo "exit=$? (tier thorough, restricted to the harnesses the native sweep flagged: $hits)" >> $out/check_${pid}_thorough.txt)
-    if grep -q "^VIOLATION" $out/check_${pid}_thorough.txt; then cp $out/check_${pid}_thorough.txt $out/check_$pid.txt; fi
-  fi
-fi
-if [ -z "$hits" ] || { ! grep -q "^VIOLATION" $out/check_$pid.txt && grep -q "no obligation was generated" $out/check_$pid.txt; }; then
-  (cd $V && python3 check.py $pid --tier $tier > $out/check_$pid.txt 2>$out/check_$pid.err; echo "exit=$? (tier $tier, full check; native sweep flagged nothing the restricted runs could decide)" >> $out/check_$pid.txt)
-fi
-oif [ -n "$hits" ]; then
-  (cd $V && VERIF_ONLY="$hits" python3 check.py $pid --tier $tier > $out/check_$pid.txt 2>$out/check_$pid.err; echo "exit=$? (tier $tier, restricted to the harnesses the native sweep flagged: $hits)" >> $out/check_$pid.txt)
-  if ! grep -q "^VIOLATION" $out/check_$pid.txt && [ "$tier" = quick ]; then
-    # the flagged harnesses may belong to the thorough tier only (larger bounds, slow ones)
-    (cd $V && VERIF_ONLY="$hits" python3 check.py $pid --tier thorough > $out/check_${pid}_thorough.txt 2>$out/check_${pid}_thorough.err; echo "exit=$? (tier thorough, restricted to the harnesses the native sweep flagged: $hits)" >> $out/check_${pid}_thorough.txt)
-    if grep -q "^VIOLATION" $out/check_${pid}_thorough.txt; then cp $out/check_${pid}_thorough.txt $out/check_$pid.txt; fi
-  fi
-fi
-if [ -z "$hits" ] || { ! grep -q "^VIOLATION" $out/check_$pid.txt && grep -q "no obligation was generated" $out/check_$pid.txt; }; then
-  (cd $V && python3 check.py $pid --tier $tier > $out/check_$pid.txt 2>$out/check_$pid.err; echo "exit=$? (tier $tier, full check; native sweep flagged nothing the restricted runs could decide)" >> $out/check_$pid.txt)
-fi
-nif [ -n "$hits" ]; then
-  (cd $V && VERIF_ONLY="$hits" python3 check.py $pid --tier $tier > $out/check_$pid.txt 2>$out/check_$pid.err; echo "exit=$? (tier $tier, restricted to the harnesses the native sweep flagged: $hits)" >> $out/check_$pid.txt)
-  if ! grep -q "^VIOLATION" $out/check_$pid.txt && [ "$tier" = quick ]; then
-    # the flagged harnesses may belong to the thorough tier only (larger bounds, slow ones)
-    (cd $V && VERIF_ONLY="$hits" python3 check.py $pid --tier thorough > $out/check_${pid}_thorough.txt 2>$out/check_${pid}_thorough.err; echo "exit=$? (tier thorough, restricted to the harnesses the native sweep flagged: $hits)" >> $out/check_${pid}_thorough.txt)
-    if grep -q "^VIOLATION" $out/check_${pid}_thorough.txt; then cp $out/check_${pid}_thorough.txt $out/check_$pid.txt; fi
-  fi
-fi
-if [ -z "$hits" ] || { ! grep -q "^VIOLATION" $out/check_$pid.txt && grep -q "no obligation was generated" $out/check_$pid.txt; }; then
-  (cd $V && python3 check.py $pid --tier $tier > $out/check_$pid.txt 2>$out/check_$pid.err; echo "exit=$? (tier $tier, full check; native sweep flagged nothing the restricted runs could decide)" >> $out/check_$pid.txt)
-fi
-.if [ -n "$hits" ]; then
-  (cd $V && VERIF_ONLY="$hits" python3 check.py $pid --tier $tier > $out/check_$pid.txt 2>$out/check_$pid.err; echo "exit=$? (tier $tier, restricted to the harnesses the native sweep flagged: $hits)" >> $out/check_$pid.txt)
-  if ! grep -q "^VIOLATION" $out/check_$pid.txt && [ "$tier" = quick ]; then
-    # the flagged harnesses may belong to the thorough tier only (larger bounds, slow ones)
-    (cd $V && VERIF_ONLY="$hits" python3 check.py $pid --tier thorough > $out/check_${pid}_thorough.txt 2>$out/check_${pid}_thorough.err; echo "exit=$? (tier thorough, restricted to the harnesses the native sweep flagged: $hits)" >> $out/check_${pid}_thorough.txt)
-    if grep -q "^VIOLATION" $out/check_${pid}_thorough.txt; then cp $out/check_${pid}_thorough.txt $out/check_$pid.txt; fi
-  fi
-fi
-if [ -z "$hits" ] || { ! grep -q "^VIOLATION" $out/check_$pid.txt && grep -q "no obligation was generated" $out/check_$pid.txt; }; then
-  (cd $V && python3 check.py $pid --tier $tier > $out/check_$pid.txt 2>$out/check_$pid.err; echo "exit=$? (tier $tier, full check; native sweep flagged nothing the restricted runs could decide)" >> $out/check_$pid.txt)
-fi
-lif [ -n "$hits" ]; then
-  (cd $V && VERIF_ONLY="$hits" python3 check.py $pid --tier $tier > $out/check_$pid.txt 2>$out/check_$pid.err; echo "exit=$? (tier $tier, restricted to the harnesses the native sweep flagged: $hits)" >> $out/check_$pid.txt)
-  if ! grep -q "^VIOLATION" $out/check_$pid.txt && [ "$tier" = quick ]; then
-    # the flagged harnesses may belong to the thorough tier only (larger bounds, slow ones)
-    (cd $V && VERIF_ONLY="$hits" python3 check.py $pid --tier thorough > $out/check_${pid}_thorough.txt 2>$out/check_${pid}_thorough.err; echo "exit=$? (tier thorough, restricted to the harnesses the native sweep flagged: $hits)" >> $out/check_${pid}_thorough.txt)
-    if grep -q "^VIOLATION" $out/check_${pid}_thorough.txt; then cp $out/check_${pid}_thorough.txt $out/check_$pid.txt; fi
-  fi
-fi
-if [ -z "$hits" ] || { ! grep -q "^VIOLATION" $out/check_$pid.txt && grep -q "no obligation was generated" $out/check_$pid.txt; }; then
-  (cd $V && python3 check.py $pid --tier $tier > $out/check_$pid.txt 2>$out/check_$pid.err; echo "exit=$? (tier $tier, full check; native sweep flagged nothing the restricted runs could decide)" >> $out/check_$pid.txt)
-fi
-oif [ -n "$hits" ]; then
-  (cd $V && VERIF_ONLY="$hits" python3 check.py $pid --tier $tier > $out/check_$pid.txt 2>$out/check_$pid.err; echo "exit=$? (tier $tier, restricted to the harnesses the native sweep flagged: $hits)" >> $out/check_$pid.txt)
-  if ! grep -q "^VIOLATION" $out/check_$pid.txt && [ "$tier" = quick ]; then
-    # the flagged harnesses may belong to the thorough tier only (larger bounds, slow ones)
-    (cd $V && VERIF_ONLY="$hits" python3 check.py $pid --tier thorough > $out/check_${pid}_thorough.txt 2>$out/check_${pid}_thorough.err; echo "exit=$? (tier thorough, restricted to the harnesses the native sweep flagged: $hits)" >> $out/check_${pid}_thorough.txt)
-    if grep -q "^VIOLATION" $out/check_${pid}_thorough.txt; then cp $out/check_${pid}_thorough.txt $out/check_$pid.txt; fi
-  fi
-fi
-if [ -z "$hits" ] || { ! grep -q "^VIOLATION" $out/check_$pid.txt && grep -q "no obligation was generated" $out/check_$pid.txt; }; then
-  (cd $V && python3 check.py $pid --tier $tier > $out/check_$pid.txt 2>$out/check_$pid.err; echo "exit=$? (tier $tier, full check; native sweep flagged nothing the restricted runs could decide)" >> $out/check_$pid.txt)
-fi
-aif [ -n "$hits" ]; then
-  (cd $V && VERIF_ONLY="$hits" python3 check.py $pid --tier $tier > $out/check_$pid.txt 2>$out/check_$pid.err; echo "exit=$? (tier $tier, restricted to the harnesses the native sweep flagged: $hits)" >> $out/check_$pid.txt)
-  if ! grep -q "^VIOLATION" $out/check_$pid.txt && [ "$tier" = quick ]; then
-    # the flagged harnesses may belong to the thorough tier only (larger bounds, slow ones)
-    (cd $V && VERIF_ONLY="$hits" python3 check.py $pid --tier thorough > $out/check_${pid}_thorough.txt 2>$out/check_${pid}_thorough.err; echo "exit=$? (tier thorough, restricted to the harnesses the native sweep flagged: $hits)" >> $out/check_${pid}_thorough.txt)
-    if grep -q "^VIOLATION" $out/check_${pid}_thorough.txt; then cp $out/check_${pid}_thorough.txt $out/check_$pid.txt; fi
-  fi
-fi
-if [ -z "$hits" ] || { ! grep -q "^VIOLATION" $out/check_$pid.txt && grep -q "no obligation was generated" $out/check_$pid.txt; }; then
-  (cd $V && python3 check.py $pid --tier $tier > $out/check_$pid.txt 2>$out/check_$pid.err; echo "exit=$? (tier $tier, full check; native sweep flagged nothing the restricted runs could decide)" >> $out/check_$pid.txt)
-fi
-dif [ -n "$hits" ]; then
-  (cd $V && VERIF_ONLY="$hits" python3 check.py $pid --tier $tier > $out/check_$pid.txt 2>$out/check_$pid.err; echo "exit=$? (tier $tier, restricted to the harnesses the native sweep flagged: $hits)" >> $out/check_$pid.txt)
-  if ! grep -q "^VIOLATION" $out/check_$pid.txt && [ "$tier" = quick ]; then
-    # the flagged harnesses may belong to the thorough tier only (larger bounds, slow ones)
-    (cd $V && VERIF_ONLY="$hits" python3 check.py $pid --tier thorough > $out/check_${pid}_thorough.txt 2>$out/check_${pid}_thorough.err; echo "exit=$? (tier thorough, restricted to the harnesses the native sweep flagged: $hits)" >> $out/check_${pid}_thorough.txt)
-    if grep -q "^VIOLATION" $out/check_${pid}_thorough.txt; then cp $out/check_${pid}_thorough.txt $out/check_$pid.txt; fi
-  fi
-fi
-if [ -z "$hits" ] || { ! grep -q "^VIOLATION" $out/check_$pid.txt && grep -q "no obligation was generated" $out/check_$pid.txt; }; then
-  (cd $V && python3 check.py $pid --tier $tier > $out/check_$pid.txt 2>$out/check_$pid.err; echo "exit=$? (tier $tier, full check; native sweep flagged nothing the restricted runs could decide)" >> $out/check_$pid.txt)
-fi
-(if [ -n "$hits" ]; then
-  (cd $V && VERIF_ONLY="$hits" python3 check.py $pid --tier $tier > $out/check_$pid.txt 2>$out/check_$pid.err; echo "exit=$? (tier $tier, restricted to the harnesses the native sweep flagged: $hits)" >> $out/check_$pid.txt)
-  if ! grep -q "^VIOLATION" $out/check_$pid.txt && [ "$tier" = quick ]; then
-    # the flagged harnesses may belong to the thorough tier only (larger bounds, slow ones)
-    (cd $V && VERIF_ONLY="$hits" python3 check.py $pid --tier thorough > $out/check_${pid}_thorough.txt 2>$out/check_${pid}_thorough.err; echo "exit=$? (tier thorough, restricted to the harnesses the native sweep flagged: $hits)" >> $out/check_${pid}_thorough.txt)
-    if grep -q "^VIOLATION" $out/check_${pid}_thorough.txt; then cp $out/check_${pid}_thorough.txt $out/check_$pid.txt; fi
-  fi
-fi
-if [ -z "$hits" ] || { ! grep -q "^VIOLATION" $out/check_$pid.txt && grep -q "no obligation was generated" $out/check_$pid.txt; }; then
-  (cd $V && python3 check.py $pid --tier $tier > $out/check_$pid.txt 2>$out/check_$pid.err; echo "exit=$? (tier $tier, full check; native sweep flagged nothing the restricted runs could decide)" >> $out/check_$pid.txt)
-fi
-sif [ -n "$hits" ]; then
-  (cd $V && VERIF_ONLY="$hits" python3 check.py $pid --tier $tier > $out/check_$pid.txt 2>$out/check_$pid.err; echo "exit=$? (tier $tier, restricted to the harnesses the native sweep flagged: $hits)" >> $out/check_$pid.txt)
-  if ! grep -q "^VIOLATION" $out/check_$pid.txt && [ "$tier" = quick ]; then
-    # the flagged harnesses may belong to the thorough tier only (larger bounds, slow ones)
-    (cd $V && VERIF_ONLY="$hits" python3 check.py $pid --tier thorough > $out/check_${pid}_thorough.txt 2>$out/check_${pid}_thorough.err; echo "exit=$? (tier thorough, restricted to the harnesses the native sweep flagged: $hits)" >> $out/check_${pid}_thorough.txt)
-    if grep -q "^VIOLATION" $out/check_${pid}_thorough.txt; then cp $out/check_${pid}_thorough.txt $out/check_$pid.txt; fi
-  fi
-fi
-if [ -z "$hits" ] || { ! grep -q "^VIOLATION" $out/check_$pid.txt && grep -q "no obligation was generated" $out/check_$pid.txt; }; then
-  (cd $V && python3 check.py $pid --tier $tier > $out/check_$pid.txt 2>$out/check_$pid.err; echo "exit=$? (tier $tier, full check; native sweep flagged nothing the restricted runs could decide)" >> $out/check_$pid.txt)
-fi
-yif [ -n "$hits" ]; then
-  (cd $V && VERIF_ONLY="$hits" python3 check.py $pid --tier $tier > $out/check_$pid.txt 2>$out/check_$pid.err; echo "exit=$? (tier $tier, restricted to the harnesses the native sweep flagged: $hits)" >> $out/check_$pid.txt)
-  if ! grep -q "^VIOLATION" $out/check_$pid.txt && [ "$tier" = quick ]; then
-    # the flagged harnesses may belong to the thorough tier only (larger bounds, slow ones)
-    (cd $V && VERIF_ONLY="$hits" python3 check.py $pid --tier thorough > $out/check_${pid}_thorough.txt 2>$out/check_${pid}_thorough.err; echo "exit=$? (tier thorough, restricted to the harnesses the native sweep flagged: $hits)" >> $out/check_${pid}_thorough.txt)
-    if grep -q "^VIOLATION" $out/check_${pid}_thorough.txt; then cp $out/check_${pid}_thorough.txt $out/check_$pid.txt; fi
-  fi
-fi
-if [ -z "$hits" ] || { ! grep -q "^VIOLATION" $out/check_$pid.txt && grep -q "no obligation was generated" $out/check_$pid.txt; }; then
-  (cd $V && python3 check.py $pid --tier $tier > $out/check_$pid.txt 2>$out/check_$pid.err; echo "exit=$? (tier $tier, full check; native sweep flagged nothing the restricted runs could decide)" >> $out/check_$pid.txt)
-fi
-sif [ -n "$hits" ]; then
-  (cd $V && VERIF_ONLY="$hits" python3 check.py $pid --tier $tier > $out/check_$pid.txt 2>$out/check_$pid.err; echo "exit=$? (tier $tier, restricted to the harnesses the native sweep flagged: $hits)" >> $out/check_$pid.txt)
-  if ! grep -q "^VIOLATION" $out/check_$pid.txt && [ "$tier" = quick ]; then
-    # the flagged harnesses may belong to the thorough tier only (larger bounds, slow ones)
-    (cd $V && VERIF_ONLY="$hits" python3 check.py $pid --tier thorough > $out/check_${pid}_thorough.txt 2>$out/check_${pid}_thorough.err; echo "exit=$? (tier thorough, restricted to the harnesses the native sweep flagged: $hits)" >> $out/check_${pid}_thorough.txt)
-    if grep -q "^VIOLATION" $out/check_${pid}_thorough.txt; then cp $out/check_${pid}_thorough.txt $out/check_$pid.txt; fi
-  fi
-fi
-if [ -z "$hits" ] || { ! grep -q "^VIOLATION" $out/check_$pid.txt && grep -q "no obligation was generated" $out/check_$pid.txt; }; then
-  (cd $V && python3 check.py $pid --tier $tier > $out/check_$pid.txt 2>$out/check_$pid.err; echo "exit=$? (tier $tier, full check; native sweep flagged nothing the restricted runs could decide)" >> $out/check_$pid.txt)
-fi
-.if [ -n "$hits" ]; then
-  (cd $V && VERIF_ONLY="$hits" python3 check.py $pid --tier $tier > $out/check_$pid.txt 2>$out/check_$pid.err; echo "exit=$? (tier $tier, restricted to the harnesses the native sweep flagged: $hits)" >> $out/check_$pid.txt)
-  if ! grep -q "^VIOLATION" $out/check_$pid.txt && [ "$tier" = quick ]; then
-    # the flagged harnesses may belong to the thorough tier only (larger bounds, slow ones)
-    (cd $V && VERIF_ONLY="$hits" python3 check.py $pid --tier thorough > $out/check_${pid}_thorough.txt 2>$out/check_${pid}_thorough.err; echo "exit=$? (tier thorough, restricted to the harnesses the native sweep flagged: $hits)" >> $out/check_${pid}_thorough.txt)
-    if grep -q "^VIOLATION" $out/check_${pid}_thorough.txt; then cp $out/check_${pid}_thorough.txt $out/check_$pid.txt; fi
-  fi
-fi
-if [ -z "$hits" ] || { ! grep -q "^VIOLATION" $out/check_$pid.txt && grep -q "no obligation was generated" $out/check_$pid.txt; }; then
-  (cd $V && python3 check.py $pid --tier $tier > $out/check_$pid.txt 2>$out/check_$pid.err; echo "exit=$? (tier $tier, full check; native sweep flagged nothing the restricted runs could decide)" >> $out/check_$pid.txt)
-fi
-sif [ -n "$hits" ]; then
-  (cd $V && VERIF_ONLY="$hits" python3 check.py $pid --tier $tier > $out/check_$pid.txt 2>$out/check_$pid.err; echo "exit=$? (tier $tier, restricted to the harnesses the native sweep flagged: $hits)" >> $out/check_$pid.txt)
-  if ! grep -q "^VIOLATION" $out/check_$pid.txt && [ "$tier" = quick ]; then
-    # the flagged harnesses may belong to the thorough tier only (larger bounds, slow ones)
-    (cd $V && VERIF_ONLY="$hits" python3 check.py $pid --tier thorough > $out/check_${pid}_thorough.txt 2>$out/check_${pid}_thorough.err; echo "exit=$? (tier thorough, restricted to the harnesses the native sweep flagged: $hits)" >> $out/check_${pid}_thorough.txt)
-    if grep -q "^VIOLATION" $out/check_${pid}_thorough.txt; then cp $out/check_${pid}_thorough.txt $out/check_$pid.txt; fi
-  fi
-fi
-if [ -z "$hits" ] || { ! grep -q "^VIOLATION" $out/check_$pid.txt && grep -q "no obligation was generated" $out/check_$pid.txt; }; then
-  (cd $V && python3 check.py $pid --tier $tier > $out/check_$pid.txt 2>$out/check_$pid.err; echo "exit=$? (tier $tier, full check; native sweep flagged nothing the restricted runs could decide)" >> $out/check_$pid.txt)
-fi
-tif [ -n "$hits" ]; then
-  (cd $V && VERIF_ONLY="$hits" python3 check.py $pid --tier $tier > $out/check_$pid.txt 2>$out/check_$pid.err; echo "exit=$? (tier $tier, restricted to the harnesses the native sweep flagged: $hits)" >> $out/check_$pid.txt)
-  if ! grep -q "^VIOLATION" $out/check_$pid.txt && [ "$tier" = quick ]; then
-    # the flagged harnesses may belong to the thorough tier only (larger bounds, slow ones)
-    (cd $V && VERIF_ONLY="$hits" python3 check.py $pid --tier thorough > $out/check_${pid}_thorough.txt 2>$out/check_${pid}_thorough.err; echo "exit=$? (tier thorough, restricted to the harnesses the native sweep flagged: $hits)" >> $out/check_${pid}_thorough.txt)
-    if grep -q "^VIOLATION" $out/check_${pid}_thorough.txt; then cp $out/check_${pid}_thorough.txt $out/check_$pid.txt; fi
-  fi
-fi
-if [ -z "$hits" ] || { ! grep -q "^VIOLATION" $out/check_$pid.txt && grep -q "no obligation was generated" $out/check_$pid.txt; }; then
-  (cd $V && python3 check.py $pid --tier $tier > $out/check_$pid.txt 2>$out/check_$pid.err; echo "exit=$? (tier $tier, full check; native sweep flagged nothing the restricted runs could decide)" >> $out/check_$pid.txt)
-fi
-dif [ -n "$hits" ]; then
-  (cd $V && VERIF_ONLY="$hits" python3 check.py $pid --tier $tier > $out/check_$pid.txt 2>$out/check_$pid.err; echo "exit=$? (tier $tier, restricted to the harnesses the native sweep flagged: $hits)" >> $out/check_$pid.txt)
-  if ! grep -q "^VIOLATION" $out/check_$pid.txt && [ "$tier" = quick ]; then
-    # the flagged harnesses may belong to the thorough tier only (larger bounds, slow ones)
-    (cd $V && VERIF_ONLY="$hits" python3 check.py $pid --tier thorough > $out/check_${pid}_thorough.txt 2>$out/check_${pid}_thorough.err; echo "exit=$? (tier thorough, restricted to the harnesses the native sweep flagged: $hits)" >> $out/check_${pid}_thorough.txt)
-    if grep -q "^VIOLATION" $out/check_${pid}_thorough.txt; then cp $out/check_${pid}_thorough.txt $out/check_$pid.txt; fi
-  fi
-fi
-if [ -z "$hits" ] || { ! grep -q "^VIOLATION" $out/check_$pid.txt && grep -q "no obligation was generated" $out/check_$pid.txt; }; then
-  (cd $V && python3 check.py $pid --tier $tier > $out/check_$pid.txt 2>$out/check_$pid.err; echo "exit=$? (tier $tier, full check; native sweep flagged nothing the restricted runs could decide)" >> $out/check_$pid.txt)
-fi
-iif [ -n "$hits" ]; then
-  (cd $V && VERIF_ONLY="$hits" python3 check.py $pid --tier $tier > $out/check_$pid.txt 2>$out/check_$pid.err; echo "exit=$? (tier $tier, restricted to the harnesses the native sweep flagged: $hits)" >> $out/check_$pid.txt)
-  if ! grep -q "^VIOLATION" $out/check_$pid.txt && [ "$tier" = quick ]; then
-    # the flagged harnesses may belong to the thorough tier only (larger bounds, slow ones)
-    (cd $V && VERIF_ONLY="$hits" python3 check.py $pid --tier thorough > $out/check_${pid}_thorough.txt 2>$out/check_${pid}_thorough.err; echo "exit=$? (tier thorough, restricted to the harnesses the native sweep flagged: $hits)" >> $out/check_${pid}_thorough.txt)
-    if grep -q "^VIOLATION" $out/check_${pid}_thorough.txt; then cp $out/check_${pid}_thorough.txt $out/check_$pid.txt; fi
-  fi
-fi
-if [ -z "$hits" ] || { ! grep -q "^VIOLATION" $out/check_$pid.txt && grep -q "no obligation was generated" $out/check_$pid.txt; }; then
-  (cd $V && python3 check.py $pid --tier $tier > $out/check_$pid.txt 2>$out/check_$pid.err; echo "exit=$? (tier $tier, full check; native sweep flagged nothing the restricted runs could decide)" >> $out/check_$pid.txt)
-fi
-nif [ -n "$hits" ]; then
-  (cd $V && VERIF_ONLY="$hits" python3 check.py $pid --tier $tier > $out/check_$pid.txt 2>$out/check_$pid.err; echo "exit=$? (tier $tier, restricted to the harnesses the native sweep flagged: $hits)" >> $out/check_$pid.txt)
-  if ! grep -q "^VIOLATION" $out/check_$pid.txt && [ "$tier" = quick ]; then
-    # the flagged harnesses may belong to the thorough tier only (larger bounds, slow ones)
-    (cd $V && VERIF_ONLY="$hits" python3 check.py $pid --tier thorough > $out/check_${pid}_thorough.txt 2>$out/check_${pid}_thorough.err; echo "exit=$? (tier thorough, restricted to the harnesses the native sweep flagged: $hits)" >> $out/check_${pid}_thorough.txt)
-    if grep -q "^VIOLATION" $out/check_${pid}_thorough.txt; then cp $out/check_${pid}_thorough.txt $out/check_$pid.txt; fi
-  fi
-fi
-if [ -z "$hits" ] || { ! grep -q "^VIOLATION" $out/check_$pid.txt && grep -q "no obligation was generated" $out/check_$pid.txt; }; then
-  (cd $V && python3 check.py $pid --tier $tier > $out/check_$pid.txt 2>$out/check_$pid.err; echo "exit=$? (tier $tier, full check; native sweep flagged nothing the restricted runs could decide)" >> $out/check_$pid.txt)
-fi
-)if [ -n "$hits" ]; then
-  (cd $V && VERIF_ONLY="$hits" python3 check.py $pid --tier $tier > $out/check_$pid.txt 2>$out/check_$pid.err; echo "exit=$? (tier $tier, restricted to the harnesses the native sweep flagged: $hits)" >> $out/check_$pid.txt)
-  if ! grep -q "^VIOLATION" $out/check_$pid.txt && [ "$tier" = quick ]; then
-    # the flagged harnesses may belong to the thorough tier only (larger bounds, slow ones)
-    (cd $V && VERIF_ONLY="$hits" python3 check.py $pid --tier thorough > $out/check_${pid}_thorough.txt 2>$out/check_${pid}_thorough.err; echo "exit=$? (tier thorough, restricted to the harnesses the native sweep flagged: $hits)" >> $out/check_${pid}_thorough.txt)
-    if grep -q "^VIOLATION" $out/check_${pid}_thorough.txt; then cp $out/check_${pid}_thorough.txt $out/check_$pid.txt; fi
-  fi
-fi
-if [ -z "$hits" ] || { ! grep -q "^VIOLATION" $out/check_$pid.txt && grep -q "no obligation was generated" $out/check_$pid.txt; }; then
-  (cd $V && python3 check.py $pid --tier $tier > $out/check_$pid.txt 2>$out/check_$pid.err; echo "exit=$? (tier $tier, full check; native sweep flagged nothing the restricted runs could decide)" >> $out/check_$pid.txt)
-fi
-;if [ -n "$hits" ]; then
-  (cd $V && VERIF_ONLY="$hits" python3 check.py $pid --tier $tier > $out/check_$pid.txt 2>$out/check_$pid.err; echo "exit=$? (tier $tier, restricted to the harnesses the native sweep flagged: $hits)" >> $out/check_$pid.txt)
-  if ! grep -q "^VIOLATION" $out/check_$pid.txt && [ "$tier" = quick ]; then
-    # the flagged harnesses may belong to the thorough tier only (larger bounds, slow ones)
-    (cd $V && VERIF_ONLY="$hits" python3 check.py $pid --tier thorough > $out/check_${pid}_thorough.txt 2>$out/check_${pid}_thorough.err; echo "exit=$? (tier thorough, restricted to the harnesses the native sweep flagged: $hits)" >> $out/check_${pid}_thorough.txt)
-    if grep -q "^VIOLATION" $out/check_${pid}_thorough.txt; then cp $out/check_${pid}_thorough.txt $out/check_$pid.txt; fi
-  fi
-fi
-if [ -z "$hits" ] || { ! grep -q "^VIOLATION" $out/check_$pid.txt && grep -q "no obligation was generated" $out/check_$pid.txt; }; then
-  (cd $V && python3 check.py $pid --tier $tier > $out/check_$pid.txt 2>$out/check_$pid.err; echo "exit=$? (tier $tier, full check; native sweep flagged nothing the restricted runs could decide)" >> $out/check_$pid.txt)
-fi
- if [ -n "$hits" ]; then
-  (cd $V && VERIF_ONLY="$hits" python3 check.py $pid --tier $tier > $out/check_$pid.txt 2>$out/check_$pid.err; echo "exit=$? (tier $tier, restricted to the harnesses the native sweep flagged: $hits)" >> $out/check_$pid.txt)
-  if ! grep -q "^VIOLATION" $out/check_$pid.txt && [ "$tier" = quick ]; then
-    # the flagged harnesses may belong to the thorough tier only (larger bounds, slow ones)
-    (cd $V && VERIF_ONLY="$hits" python3 check.py $pid --tier thorough > $out/check_${pid}_thorough.txt 2>$out/check_${pid}_thorough.err; echo "exit=$? (tier thorough, restricted to the harnesses the native sweep flagged: $hits)" >> $out/check_${pid}_thorough.txt)
-    if grep -q "^VIOLATION" $out/check_${pid}_thorough.txt; then cp $out/check_${pid}_thorough.txt $out/check_$pid.txt; fi
-  fi
-fi
-if [ -z "$hits" ] || { ! grep -q "^VIOLATION" $out/check_$pid.txt && grep -q "no obligation was generated" $out/check_$pid.txt; }; then
-  (cd $V && python3 check.py $pid --tier $tier > $out/check_$pid.txt 2>$out/check_$pid.err; echo "exit=$? (tier $tier, full check; native sweep flagged nothing the restricted runs could decide)" >> $out/check_$pid.txt)
-fi
-pif [ -n "$hits" ]; then
-  (cd $V && VERIF_ONLY="$hits" python3 check.py $pid --tier $tier > $out/check_$pid.txt 2>$out/check_$pid.err; echo "exit=$? (tier $tier, restricted to the harnesses the native sweep flagged: $hits)" >> $out/check_$pid.txt)
-  if ! grep -q "^VIOLATION" $out/check_$pid.txt && [ "$tier" = quick ]; then
-    # the flagged harnesses may belong to the thorough tier only (larger bounds, slow ones)
-    (cd $V && VERIF_ONLY="$hits" python3 check.py $pid --tier thorough > $out/check_${pid}_thorough.txt 2>$out/check_${pid}_thorough.err; echo "exit=$? (tier thorough, restricted to the harnesses the native sweep flagged: $hits)" >> $out/check_${pid}_thorough.txt)
-    if grep -q "^VIOLATION" $out/check_${pid}_thorough.txt; then cp $out/check_${pid}_thorough.txt $out/check_$pid.txt; fi
-  fi
-fi
-if [ -z "$hits" ] || { ! grep -q "^VIOLATION" $out/check_$pid.txt && grep -q "no obligation was generated" $out/check_$pid.txt; }; then
-  (cd $V && python3 check.py $pid --tier $tier > $out/check_$pid.txt 2>$out/check_$pid.err; echo "exit=$? (tier $tier, full check; native sweep flagged nothing the restricted runs could decide)" >> $out/check_$pid.txt)
-fi
-rif [ -n "$hits" ]; then
-  (cd $V && VERIF_ONLY="$hits" python3 check.py $pid --tier $tier > $out/check_$pid.txt 2>$out/check_$pid.err; echo "exit=$? (tier $tier, restricted to the harnesses the native sweep flagged: $hits)" >> $out/check_$pid.txt)
-  if ! grep -q "^VIOLATION" $out/check_$pid.txt && [ "$tier" = quick ]; then
-    # the flagged harnesses may belong to the thorough tier only (larger bounds, slow ones)
-    (cd $V && VERIF_ONLY="$hits" python3 check.py $pid --tier thorough > $out/check_${pid}_thorough.txt 2>$out/check_${pid}_thorough.err; echo "exit=$? (tier thorough, restricted to the harnesses the native sweep flagged: $hits)" >> $out/check_${pid}_thorough.txt)
-    if grep -q "^VIOLATION" $out/check_${pid}_thorough.txt; then cp $out/check_${pid}_thorough.txt $out/check_$pid.txt; fi
-  fi
-fi
-if [ -z "$hits" ] || { ! grep -q "^VIOLATION" $out/check_$pid.txt && grep -q "no obligation was generated" $out/check_$pid.txt; }; then
-  (cd $V && python3 check.py $pid --tier $tier > $out/check_$pid.txt 2>$out/check_$pid.err; echo "exit=$? (tier $tier, full check; native sweep flagged nothing the restricted runs could decide)" >> $out/check_$pid.txt)
-fi
-iif [ -n "$hits" ]; then
-  (cd $V && VERIF_ONLY="$hits" python3 check.py $pid --tier $tier > $out/check_$pid.txt 2>$out/check_$pid.err; echo "exit=$? (tier $tier, restricted to the harnesses the native sweep flagged: $hits)" >> $out/check_$pid.txt)
-  if ! grep -q "^VIOLATION" $out/check_$pid.txt && [ "$tier" = quick ]; then
-    # the flagged harnesses may belong to the thorough tier only (larger bounds, slow ones)
-    (cd $V && VERIF_ONLY="$hits" python3 check.py $pid --tier thorough > $out/check_${pid}_thorough.txt 2>$out/check_${pid}_thorough.err; echo "exit=$? (tier thorough, restricted to the harnesses the native sweep flagged: $hits)" >> $out/check_${pid}_thorough.txt)
-    if grep -q "^VIOLATION" $out/check_${pid}_thorough.txt; then cp $out/check_${pid}_thorough.txt $out/check_$pid.txt; fi
-  fi
-fi
-if [ -z "$hits" ] || { ! grep -q "^VIOLATION" $out/check_$pid.txt && grep -q "no obligation was generated" $out/check_$pid.txt; }; then
-  (cd $V && python3 check.py $pid --tier $tier > $out/check_$pid.txt 2>$out/check_$pid.err; echo "exit=$? (tier $tier, full check; native sweep flagged nothing the restricted runs could decide)" >> $out/check_$pid.txt)
-fi
-nif [ -n "$hits" ]; then
-  (cd $V && VERIF_ONLY="$hits" python3 check.py $pid --tier $tier > $out/check_$pid.txt 2>$out/check_$pid.err; echo "exit=$? (tier $tier, restricted to the harnesses the native sweep flagged: $hits)" >> $out/check_$pid.txt)
-  if ! grep -q "^VIOLATION" $out/check_$pid.txt && [ "$tier" = quick ]; then
-    # the flagged harnesses may belong to the thorough tier only (larger bounds, slow ones)
-    (cd $V && VERIF_ONLY="$hits" python3 check.py $pid --tier thorough > $out/check_${pid}_thorough.txt 2>$out/check_${pid}_thorough.err; echo "exit=$? (tier thorough, restricted to the harnesses the native sweep flagged: $hits)" >> $out/check_${pid}_thorough.txt)
-    if grep -q "^VIOLATION" $out/check_${pid}_thorough.txt; then cp $out/check_${pid}_thorough.txt $out/check_$pid.txt; fi
-  fi
-fi
-if [ -z "$hits" ] || { ! grep -q "^VIOLATION" $out/check_$pid.txt && grep -q "no obligation was generated" $out/check_$pid.txt; }; then
-  (cd $V && python3 check.py $pid --tier $tier > $out/check_$pid.txt 2>$out/check_$pid.err; echo "exit=$? (tier $tier, full check; native sweep flagged nothing the restricted runs could decide)" >> $out/check_$pid.txt)
-fi
-tif [ -n "$hits" ]; then
-  (cd $V && VERIF_ONLY="$hits" python3 check.py $pid --tier $tier > $out/check_$pid.txt 2>$out/check_$pid.err; echo "exit=$? (tier $tier, restricted to the harnesses the native sweep flagged: $hits)" >> $out/check_$pid.txt)
-  if ! grep -q "^VIOLATION" $out/check_$pid.txt && [ "$tier" = quick ]; then
-    # the flagged harnesses may belong to the thorough tier only (larger bounds, slow ones)
-    (cd $V && VERIF_ONLY="$hits" python3 check.py $pid --tier thorough > $out/check_${pid}_thorough.txt 2>$out/check_${pid}_thorough.err; echo "exit=$? (tier thorough, restricted to the harnesses the native sweep flagged: $hits)" >> $out/check_${pid}_thorough.txt)
-    if grep -q "^VIOLATION" $out/check_${pid}_thorough.txt; then cp $out/check_${pid}_thorough.txt $out/check_$pid.txt; fi
-  fi
-fi
-if [ -z "$hits" ] || { ! grep -q "^VIOLATION" $out/check_$pid.txt && grep -q "no obligation was generated" $out/check_$pid.txt; }; then
-  (cd $V && python3 check.py $pid --tier $tier > $out/check_$pid.txt 2>$out/check_$pid.err; echo "exit=$? (tier $tier, full check; native sweep flagged nothing the restricted runs could decide)" >> $out/check_$pid.txt)
-fi
-(if [ -n "$hits" ]; then
-  (cd $V && VERIF_ONLY="$hits" python3 check.py $pid --tier $tier > $out/check_$pid.txt 2>$out/check_$pid.err; echo "exit=$? (tier $tier, restricted to the harnesses the native sweep flagged: $hits)" >> $out/check_$pid.txt)
-  if ! grep -q "^VIOLATION" $out/check_$pid.txt && [ "$tier" = quick ]; then
-    # the flagged harnesses may belong to the thorough tier only (larger bounds, slow ones)
-    (cd $V && VERIF_ONLY="$hits" python3 check.py $pid --tier thorough > $out/check_${pid}_thorough.txt 2>$out/check_${pid}_thorough.err; echo "exit=$? (tier thorough, restricted to the harnesses the native sweep flagged: $hits)" >> $out/check_${pid}_thorough.txt)
-    if grep -q "^VIOLATION" $out/check_${pid}_thorough.txt; then cp $out/check_${pid}_thorough.txt $out/check_$pid.txt; fi
-  fi
-fi
-if [ -z "$hits" ] || { ! grep -q "^VIOLATION" $out/check_$pid.txt && grep -q "no obligation was generated" $out/check_$pid.txt; }; then
-  (cd $V && python3 check.py $pid --tier $tier > $out/check_$pid.txt 2>$out/check_$pid.err; echo "exit=$? (tier $tier, full check; native sweep flagged nothing the restricted runs could decide)" >> $out/check_$pid.txt)
-fi
-'if [ -n "$hits" ]; then
-  (cd $V && VERIF_ONLY="$hits" python3 check.py $pid --tier $tier > $out/check_$pid.txt 2>$out/check_$pid.err; echo "exit=$? (tier $tier, restricted to the harnesses the native sweep flagged: $hits)" >> $out/check_$pid.txt)
-  if ! grep -q "^VIOLATION" $out/check_$pid.txt && [ "$tier" = quick ]; then
-    # the flagged harnesses may belong to the thorough tier only (larger bounds, slow ones)
-    (cd $V && VERIF_ONLY="$hits" python3 check.py $pid --tier thorough > $out/check_${pid}_thorough.txt 2>$out/check_${pid}_thorough.err; echo "exit=$? (tier thorough, restricted to the harnesses the native sweep flagged: $hits)" >> $out/check_${pid}_thorough.txt)
-    if grep -q "^VIOLATION" $out/check_${pid}_thorough.txt; then cp $out/check_${pid}_thorough.txt $out/check_$pid.txt; fi
-  fi
-fi
-if [ -z "$hits" ] || { ! grep -q "^VIOLATION" $out/check_$pid.txt && grep -q "no obligation was generated" $out/check_$pid.txt; }; then
-  (cd $V && python3 check.py $pid --tier $tier > $out/check_$pid.txt 2>$out/check_$pid.err; echo "exit=$? (tier $tier, full check; native sweep flagged nothing the restricted runs could decide)" >> $out/check_$pid.txt)
-fi
-^if [ -n "$hits" ]; then
-  (cd $V && VERIF_ONLY="$hits" python3 check.py $pid --tier $tier > $out/check_$pid.txt 2>$out/check_$pid.err; echo "exit=$? (tier $tier, restricted to the harnesses the native sweep flagged: $hits)" >> $out/check_$pid.txt)
-  if ! grep -q "^VIOLATION" $out/check_$pid.txt && [ "$tier" = quick ]; then
-    # the flagged harnesses may belong to the thorough tier only (larger bounds, slow ones)
-    (cd $V && VERIF_ONLY="$hits" python3 check.py $pid --tier thorough > $out/check_${pid}_thorough.txt 2>$out/check_${pid}_thorough.err; echo "exit=$? (tier thorough, restricted to the harnesses the native sweep flagged: $hits)" >> $out/check_${pid}_thorough.txt)
-    if grep -q "^VIOLATION" $out/check_${pid}_thorough.txt; then cp $out/check_${pid}_thorough.txt $out/check_$pid.txt; fi
-  fi
-fi
-if [ -z "$hits" ] || { ! grep -q "^VIOLATION" $out/check_$pid.txt && grep -q "no obligation was generated" $out/check_$pid.txt; }; then
-  (cd $V && python3 check.py $pid --tier $tier > $out/check_$pid.txt 2>$out/check_$pid.err; echo "exit=$? (tier $tier, full check; native sweep flagged nothing the restricted runs could decide)" >> $out/check_$pid.txt)
-fi
-(if [ -n "$hits" ]; then
-  (cd $V && VERIF_ONLY="$hits" python3 check.py $pid --tier $tier > $out/check_$pid.txt 2>$out/check_$pid.err; echo "exit=$? (tier $tier, restricted to the harnesses the native sweep flagged: $hits)" >> $out/check_$pid.txt)
-  if ! grep -q "^VIOLATION" $out/check_$pid.txt && [ "$tier" = quick ]; then
-    # the flagged harnesses may belong to the thorough tier only (larger bounds, slow ones)
-    (cd $V && VERIF_ONLY="$hits" python3 check.py $pid --tier thorough > $out/check_${pid}_thorough.txt 2>$out/check_${pid}_thorough.err; echo "exit=$? (tier thorough, restricted to the harnesses the native sweep flagged: $hits)" >> $out/check_${pid}_thorough.txt)
-    if grep -q "^VIOLATION" $out/check_${pid}_thorough.txt; then cp $out/check_${pid}_thorough.txt $out/check_$pid.txt; fi
-  fi
-fi
-if [ -z "$hits" ] || { ! grep -q "^VIOLATION" $out/check_$pid.txt && grep -q "no obligation was generated" $out/check_$pid.txt; }; then
-  (cd $V && python3 check.py $pid --tier $tier > $out/check_$pid.txt 2>$out/check_$pid.err; echo "exit=$? (tier $tier, full check; native sweep flagged nothing the restricted runs could decide)" >> $out/check_$pid.txt)
-fi
-'if [ -n "$hits" ]; then
-  (cd $V && VERIF_ONLY="$hits" python3 check.py $pid --tier $tier > $out/check_$pid.txt 2>$out/check_$pid.err; echo "exit=$? (tier $tier, restricted to the harnesses the native sweep flagged: $hits)" >> $out/check_$pid.txt)
-  if ! grep -q "^VIOLATION" $out/check_$pid.txt && [ "$tier" = quick ]; then
-    # the flagged harnesses may belong to the thorough tier only (larger bounds, slow ones)
-    (cd $V && VERIF_ONLY="$hits" python3 check.py $pid --tier thorough > $out/check_${pid}_thorough.txt 2>$out/check_${pid}_thorough.err; echo "exit=$? (tier thorough, restricted to the harnesses the native sweep flagged: $hits)" >> $out/check_${pid}_thorough.txt)
-    if grep -q "^VIOLATION" $out/check_${pid}_thorough.txt; then cp $out/check_${pid}_thorough.txt $out/check_$pid.txt; fi
-  fi
-fi
-if [ -z "$hits" ] || { ! grep -q "^VIOLATION" $out/check_$pid.txt && grep -q "no obligation was generated" $out/check_$pid.txt; }; then
-  (cd $V && python3 check.py $pid --tier $tier > $out/check_$pid.txt 2>$out/check_$pid.err; echo "exit=$? (tier $tier, full check; native sweep flagged nothing the restricted runs could decide)" >> $out/check_$pid.txt)
-fi
-+if [ -n "$hits" ]; then
-  (cd $V && VERIF_ONLY="$hits" python3 check.py $pid --tier $tier > $out/check_$pid.txt 2>$out/check_$pid.err; echo "exit=$? (tier $tier, restricted to the harnesses the native sweep flagged: $hits)" >> $out/check_$pid.txt)
-  if ! grep -q "^VIOLATION" $out/check_$pid.txt && [ "$tier" = quick ]; then
-    # the flagged harnesses may belong to the thorough tier only (larger bounds, slow ones)
-    (cd $V && VERIF_ONLY="$hits" python3 check.py $pid --tier thorough > $out/check_${pid}_thorough.txt 2>$out/check_${pid}_thorough.err; echo "exit=$? (tier thorough, restricted to the harnesses the native sweep flagged: $hits)" >> $out/check_${pid}_thorough.txt)
-    if grep -q "^VIOLATION" $out/check_${pid}_thorough.txt; then cp $out/check_${pid}_thorough.txt $out/check_$pid.txt; fi
-  fi
-fi
-if [ -z "$hits" ] || { ! grep -q "^VIOLATION" $out/check_$pid.txt && grep -q "no obligation was generated" $out/check_$pid.txt; }; then
-  (cd $V && python3 check.py $pid --tier $tier > $out/check_$pid.txt 2>$out/check_$pid.err; echo "exit=$? (tier $tier, full check; native sweep flagged nothing the restricted runs could decide)" >> $out/check_$pid.txt)
-fi
-'if [ -n "$hits" ]; then
-  (cd $V && VERIF_ONLY="$hits" python3 check.py $pid --tier $tier > $out/check_$pid.txt 2>$out/check_$pid.err; echo "exit=$? (tier $tier, restricted to the harnesses the native sweep flagged: $hits)" >> $out/check_$pid.txt)
-  if ! grep -q "^VIOLATION" $out/check_$pid.txt && [ "$tier" = quick ]; then
-    # the flagged harnesses may belong to the thorough tier only (larger bounds, slow ones)
-    (cd $V && VERIF_ONLY="$hits" python3 check.py $pid --tier thorough > $out/check_${pid}_thorough.txt 2>$out/check_${pid}_thorough.err; echo "exit=$? (tier thorough, restricted to the harnesses the native sweep flagged: $hits)" >> $out/check_${pid}_thorough.txt)
-    if grep -q "^VIOLATION" $out/check_${pid}_thorough.txt; then cp $out/check_${pid}_thorough.txt $out/check_$pid.txt; fi
-  fi
-fi
-if [ -z "$hits" ] || { ! grep -q "^VIOLATION" $out/check_$pid.txt && grep -q "no obligation was generated" $out/check_$pid.txt; }; then
-  (cd $V && python3 check.py $pid --tier $tier > $out/check_$pid.txt 2>$out/check_$pid.err; echo "exit=$? (tier $tier, full check; native sweep flagged nothing the restricted runs could decide)" >> $out/check_$pid.txt)
-fi
-|if [ -n "$hits" ]; then
-  (cd $V && VERIF_ONLY="$hits" python3 check.py $pid --tier $tier > $out/check_$pid.txt 2>$out/check_$pid.err; echo "exit=$? (tier $tier, restricted to the harnesses the native sweep flagged: $hits)" >> $out/check_$pid.txt)
-  if ! grep -q "^VIOLATION" $out/check_$pid.txt && [ "$tier" = quick ]; then
-    # the flagged harnesses may belong to the thorough tier only (larger bounds, slow ones)
-    (cd $V && VERIF_ONLY="$hits" python3 check.py $pid --tier thorough > $out/check_${pid}_thorough.txt 2>$out/check_${pid}_thorough.err; echo "exit=$? (tier thorough, restricted to the harnesses the native sweep flagged: $hits)" >> $out/check_${pid}_thorough.txt)
-    if grep -q "^VIOLATION" $out/check_${pid}_thorough.txt; then cp $out/check_${pid}_thorough.txt $out/check_$pid.txt; fi
-  fi
-fi
-if [ -z "$hits" ] || { ! grep -q "^VIOLATION" $out/check_$pid.txt && grep -q "no obligation was generated" $out/check_$pid.txt; }; then
-  (cd $V && python3 check.py $pid --tier $tier > $out/check_$pid.txt 2>$out/check_$pid.err; echo "exit=$? (tier $tier, full check; native sweep flagged nothing the restricted runs could decide)" >> $out/check_$pid.txt)
-fi
-'if [ -n "$hits" ]; then
-  (cd $V && VERIF_ONLY="$hits" python3 check.py $pid --tier $tier > $out/check_$pid.txt 2>$out/check_$pid.err; echo "exit=$? (tier $tier, restricted to the harnesses the native sweep flagged: $hits)" >> $out/check_$pid.txt)
-  if ! grep -q "^VIOLATION" $out/check_$pid.txt && [ "$tier" = quick ]; then
-    # the flagged harnesses may belong to the thorough tier only (larger bounds, slow ones)
-    (cd $V && VERIF_ONLY="$hits" python3 check.py $pid --tier thorough > $out/check_${pid}_thorough.txt 2>$out/check_${pid}_thorough.err; echo "exit=$? (tier thorough, restricted to the harnesses the native sweep flagged: $hits)" >> $out/check_${pid}_thorough.txt)
-    if grep -q "^VIOLATION" $out/check_${pid}_thorough.txt; then cp $out/check_${pid}_thorough.txt $out/check_$pid.txt; fi
-  fi
-fi
-if [ -z "$hits" ] || { ! grep -q "^VIOLATION" $out/check_$pid.txt && grep -q "no obligation was generated" $out/check_$pid.txt; }; then
-  (cd $V && python3 check.py $pid --tier $tier > $out/check_$pid.txt 2>$out/check_$pid.err; echo "exit=$? (tier $tier, full check; native sweep flagged nothing the restricted runs could decide)" >> $out/check_$pid.txt)
-fi
-.if [ -n "$hits" ]; then
-  (cd $V && VERIF_ONLY="$hits" python3 check.py $pid --tier $tier > $out/check_$pid.txt 2>$out/check_$pid.err; echo "exit=$? (tier $tier, restricted to the harnesses the native sweep flagged: $hits)" >> $out/check_$pid.txt)
-  if ! grep -q "^VIOLATION" $out/check_$pid.txt && [ "$tier" = quick ]; then
-    # the flagged harnesses may belong to the thorough tier only (larger bounds, slow ones)
-    (cd $V && VERIF_ONLY="$hits" python3 check.py $pid --tier thorough > $out/check_${pid}_thorough.txt 2>$out/check_${pid}_thorough.err; echo "exit=$? (tier thorough, restricted to the harnesses the native sweep flagged: $hits)" >> $out/check_${pid}_thorough.txt)
-    if grep -q "^VIOLATION" $out/check_${pid}_thorough.txt; then cp $out/check_${pid}_thorough.txt $out/check_$pid.txt; fi
-  fi
-fi
-if [ -z "$hits" ] || { ! grep -q "^VIOLATION" $out/check_$pid.txt && grep -q "no obligation was generated" $out/check_$pid.txt; }; then
-  (cd $V && python3 check.py $pid --tier $tier > $out/check_$pid.txt 2>$out/check_$pid.err; echo "exit=$? (tier $tier, full check; native sweep flagged nothing the restricted runs could decide)" >> $out/check_$pid.txt)
-fi
-jif [ -n "$hits" ]; then
-  (cd $V && VERIF_ONLY="$hits" python3 check.py $pid --tier $tier > $out/check_$pid.txt 2>$out/check_$pid.err; echo "exit=$? (tier $tier, restricted to the harnesses the native sweep flagged: $hits)" >> $out/check_$pid.txt)
-  if ! grep -q "^VIOLATION" $out/check_$pid.txt && [ "$tier" = quick ]; then
-    # the flagged harnesses may belong to the thorough tier only (larger bounds, slow ones)
-    (cd $V && VERIF_ONLY="$hits" python3 check.py $pid --tier thorough > $out/check_${pid}_thorough.txt 2>$out/check_${pid}_thorough.err; echo "exit=$? (tier thorough, restricted to the harnesses the native sweep flagged: $hits)" >> $out/check_${pid}_thorough.txt)
-    if grep -q "^VIOLATION" $out/check_${pid}_thorough.txt; then cp $out/check_${pid}_thorough.txt $out/check_$pid.txt; fi
-  fi
-fi
-if [ -z "$hits" ] || { ! grep -q "^VIOLATION" $out/check_$pid.txt && grep -q "no obligation was generated" $out/check_$pid.txt; }; then
-  (cd $V && python3 check.py $pid --tier $tier > $out/check_$pid.txt 2>$out/check_$pid.err; echo "exit=$? (tier $tier, full check; native sweep flagged nothing the restricted runs could decide)" >> $out/check_$pid.txt)
-fi
-oif [ -n "$hits" ]; then
-  (cd $V && VERIF_ONLY="$hits" python3 check.py $pid --tier $tier > $out/check_$pid.txt 2>$out/check_$pid.err; echo "exit=$? (tier $tier, restricted to the harnesses the native sweep flagged: $hits)" >> $out/check_$pid.txt)
-  if ! grep -q "^VIOLATION" $out/check_$pid.txt && [ "$tier" = quick ]; then
-    # the flagged harnesses may belong to the thorough tier only (larger bounds, slow ones)
-    (cd $V && VERIF_ONLY="$hits" python3 check.py $pid --tier thorough > $out/check_${pid}_thorough.txt 2>$out/check_${pid}_thorough.err; echo "exit=$? (tier thorough, restricted to the harnesses the native sweep flagged: $hits)" >> $out/check_${pid}_thorough.txt)
-    if grep -q "^VIOLATION" $out/check_${pid}_thorough.txt; then cp $out/check_${pid}_thorough.txt $out/check_$pid.txt; fi
-  fi
-fi
-if [ -z "$hits" ] || { ! grep -q "^VIOLATION" $out/check_$pid.txt && grep -q "no obligation was generated" $out/check_$pid.txt; }; then
-  (cd $V && python3 check.py $pid --tier $tier > $out/check_$pid.txt 2>$out/check_$pid.err; echo "exit=$? (tier $tier, full check; native sweep flagged nothing the restricted runs could decide)" >> $out/check_$pid.txt)
-fi
-iif [ -n "$hits" ]; then
-  (cd $V && VERIF_ONLY="$hits" python3 check.py $pid --tier $tier > $out/check_$pid.txt 2>$out/check_$pid.err; echo "exit=$? (tier $tier, restricted to the harnesses the native sweep flagged: $hits)" >> $out/check_$pid.txt)
-  if ! grep -q "^VIOLATION" $out/check_$pid.txt && [ "$tier" = quick ]; then
-    # the flagged harnesses may belong to the thorough tier only (larger bounds, slow ones)
-    (cd $V && VERIF_ONLY="$hits" python3 check.py $pid --tier thorough > $out/check_${pid}_thorough.txt 2>$out/check_${pid}_thorough.err; echo "exit=$? (tier thorough, restricted to the harnesses the native sweep flagged: $hits)" >> $out/check_${pid}_thorough.txt)
-    if grep -q "^VIOLATION" $out/check_${pid}_thorough.txt; then cp $out/check_${pid}_thorough.txt $out/check_$pid.txt; fi
-  fi
-fi
-if [ -z "$hits" ] || { ! grep -q "^VIOLATION" $out/check_$pid.txt && grep -q "no obligation was generated" $out/check_$pid.txt; }; then
-  (cd $V && python3 check.py $pid --tier $tier > $out/check_$pid.txt 2>$out/check_$pid.err; echo "exit=$? (tier $tier, full check; native sweep flagged nothing the restricted runs could decide)" >> $out/check_$pid.txt)
-fi
-nif [ -n "$hits" ]; then
-  (cd $V && VERIF_ONLY="$hits" python3 check.py $pid --tier $tier > $out/check_$pid.txt 2>$out/check_$pid.err; echo "exit=$? (tier $tier, restricted to the harnesses the native sweep flagged: $hits)" >> $out/check_$pid.txt)
-  if ! grep -q "^VIOLATION" $out/check_$pid.txt && [ "$tier" = quick ]; then
-    # the flagged harnesses may belong to the thorough tier only (larger bounds, slow ones)
-    (cd $V && VERIF_ONLY="$hits" python3 check.py $pid --tier thorough > $out/check_${pid}_thorough.txt 2>$out/check_${pid}_thorough.err; echo "exit=$? (tier thorough, restricted to the harnesses the native sweep flagged: $hits)" >> $out/check_${pid}_thorough.txt)
-    if grep -q "^VIOLATION" $out/check_${pid}_thorough.txt; then cp $out/check_${pid}_thorough.txt $out/check_$pid.txt; fi
-  fi
-fi
-if [ -z "$hits" ] || { ! grep -q "^VIOLATION" $out/check_$pid.txt && grep -q "no obligation was generated" $out/check_$pid.txt; }; then
-  (cd $V && python3 check.py $pid --tier $tier > $out/check_$pid.txt 2>$out/check_$pid.err; echo "exit=$? (tier $tier, full check; native sweep flagged nothing the restricted runs could decide)" >> $out/check_$pid.txt)
-fi
-(if [ -n "$hits" ]; then
-  (cd $V && VERIF_ONLY="$hits" python3 check.py $pid --tier $tier > $out/check_$pid.txt 2>$out/check_$pid.err; echo "exit=$? (tier $tier, restricted to the harnesses the native sweep flagged: $hits)" >> $out/check_$pid.txt)
-  if ! grep -q "^VIOLATION" $out/check_$pid.txt && [ "$tier" = quick ]; then
-    # the flagged harnesses may belong to the thorough tier only (larger bounds, slow ones)
-    (cd $V && VERIF_ONLY="$hits" python3 check.py $pid --tier thorough > $out/check_${pid}_thorough.txt 2>$out/check_${pid}_thorough.err; echo "exit=$? (tier thorough, restricted to the harnesses the native sweep flagged: $hits)" >> $out/check_${pid}_thorough.txt)
-    if grep -q "^VIOLATION" $out/check_${pid}_thorough.txt; then cp $out/check_${pid}_thorough.txt $out/check_$pid.txt; fi
-  fi
-fi
-if [ -z "$hits" ] || { ! grep -q "^VIOLATION" $out/check_$pid.txt && grep -q "no obligation was generated" $out/check_$pid.txt; }; then
-  (cd $V && python3 check.py $pid --tier $tier > $out/check_$pid.txt 2>$out/check_$pid.err; echo "exit=$? (tier $tier, full check; native sweep flagged nothing the restricted runs could decide)" >> $out/check_$pid.txt)
-fi
-lif [ -n "$hits" ]; then
-  (cd $V && VERIF_ONLY="$hits" python3 check.py $pid --tier $tier > $out/check_$pid.txt 2>$out/check_$pid.err; echo "exit=$? (tier $tier, restricted to the harnesses the native sweep flagged: $hits)" >> $out/check_$pid.txt)
-  if ! grep -q "^VIOLATION" $out/check_$pid.txt && [ "$tier" = quick ]; then
-    # the flagged harnesses may belong to the thorough tier only (larger bounds, slow ones)
-    (cd $V && VERIF_ONLY="$hits" python3 check.py $pid --tier thorough > $out/check_${pid}_thorough.txt 2>$out/check_${pid}_thorough.err; echo "exit=$? (tier thorough, restricted to the harnesses the native sweep flagged: $hits)" >> $out/check_${pid}_thorough.txt)
-    if grep -q "^VIOLATION" $out/check_${pid}_thorough.txt; then cp $out/check_${pid}_thorough.txt $out/check_$pid.txt; fi
-  fi
-fi
-if [ -z "$hits" ] || { ! grep -q "^VIOLATION" $out/check_$pid.txt && grep -q "no obligation was generated" $out/check_$pid.txt; }; then
-  (cd $V && python3 check.py $pid --tier $tier > $out/check_$pid.txt 2>$out/check_$pid.err; echo "exit=$? (tier $tier, full check; native sweep flagged nothing the restricted runs could decide)" >> $out/check_$pid.txt)
-fi
-)if [ -n "$hits" ]; then
-  (cd $V && VERIF_ONLY="$hits" python3 check.py $pid --tier $tier > $out/check_$pid.txt 2>$out/check_$pid.err; echo "exit=$? (tier $tier, restricted to the harnesses the native sweep flagged: $hits)" >> $out/check_$pid.txt)
-  if ! grep -q "^VIOLATION" $out/check_$pid.txt && [ "$tier" = quick ]; then
-    # the flagged harnesses may belong to the thorough tier only (larger bounds, slow ones)
-    (cd $V && VERIF_ONLY="$hits" python3 check.py $pid --tier thorough > $out/check_${pid}_thorough.txt 2>$out/check_${pid}_thorough.err; echo "exit=$? (tier thorough, restricted to the harnesses the native sweep flagged: $hits)" >> $out/check_${pid}_thorough.txt)
-    if grep -q "^VIOLATION" $out/check_${pid}_thorough.txt; then cp $out/check_${pid}_thorough.txt $out/check_$pid.txt; fi
-  fi
-fi
-if [ -z "$hits" ] || { ! grep -q "^VIOLATION" $out/check_$pid.txt && grep -q "no obligation was generated" $out/check_$pid.txt; }; then
-  (cd $V && python3 check.py $pid --tier $tier > $out/check_$pid.txt 2>$out/check_$pid.err; echo "exit=$? (tier $tier, full check; native sweep flagged nothing the restricted runs could decide)" >> $out/check_$pid.txt)
-fi
-+if [ -n "$hits" ]; then
-  (cd $V && VERIF_ONLY="$hits" python3 check.py $pid --tier $tier > $out/check_$pid.txt 2>$out/check_$pid.err; echo "exit=$? (tier $tier, restricted to the harnesses the native sweep flagged: $hits)" >> $out/check_$pid.txt)
-  if ! grep -q "^VIOLATION" $out/check_$pid.txt && [ "$tier" = quick ]; then
-    # the flagged harnesses may belong to the thorough tier only (larger bounds, slow ones)
-    (cd $V && VERIF_ONLY="$hits" python3 check.py $pid --tier thorough > $out/check_${pid}_thorough.txt 2>$out/check_${pid}_thorough.err; echo "exit=$? (tier thorough, restricted to the harnesses the native sweep flagged: $hits)" >> $out/check_${pid}_thorough.txt)
-    if grep -q "^VIOLATION" $out/check_${pid}_thorough.txt; then cp $out/check_${pid}_thorough.txt $out/check_$pid.txt; fi
-  fi
-fi
-if [ -z "$hits" ] || { ! grep -q "^VIOLATION" $out/check_$pid.txt && grep -q "no obligation was generated" $out/check_$pid.txt; }; then
-  (cd $V && python3 check.py $pid --tier $tier > $out/check_$pid.txt 2>$out/check_$pid.err; echo "exit=$? (tier $tier, full check; native sweep flagged nothing the restricted runs could decide)" >> $out/check_$pid.txt)
-fi
-'if [ -n "$hits" ]; then
-  (cd $V && VERIF_ONLY="$hits" python3 check.py $pid --tier $tier > $out/check_$pid.txt 2>$out/check_$pid.err; echo "exit=$? (tier $tier, restricted to the harnesses the native sweep flagged: $hits)" >> $out/check_$pid.txt)
-  if ! grep -q "^VIOLATION" $out/check_$pid.txt && [ "$tier" = quick ]; then
-    # the flagged harnesses may belong to the thorough tier only (larger bounds, slow ones)
-    (cd $V && VERIF_ONLY="$hits" python3 check.py $pid --tier thorough > $out/check_${pid}_thorough.txt 2>$out/check_${pid}_thorough.err; echo "exit=$? (tier thorough, restricted to the harnesses the native sweep flagged: $hits)" >> $out/check_${pid}_thorough.txt)
-    if grep -q "^VIOLATION" $out/check_${pid}_thorough.txt; then cp $out/check_${pid}_thorough.txt $out/check_$pid.txt; fi
-  fi
-fi
-if [ -z "$hits" ] || { ! grep -q "^VIOLATION" $out/check_$pid.txt && grep -q "no obligation was generated" $out/check_$pid.txt; }; then
-  (cd $V && python3 check.py $pid --tier $tier > $out/check_$pid.txt 2>$out/check_$pid.err; echo "exit=$? (tier $tier, full check; native sweep flagged nothing the restricted runs could decide)" >> $out/check_$pid.txt)
-fi
-)if [ -n "$hits" ]; then
-  (cd $V && VERIF_ONLY="$hits" python3 check.py $pid --tier $tier > $out/check_$pid.txt 2>$out/check_$pid.err; echo "exit=$? (tier $tier, restricted to the harnesses the native sweep flagged: $hits)" >> $out/check_$pid.txt)
-  if ! grep -q "^VIOLATION" $out/check_$pid.txt && [ "$tier" = quick ]; then
-    # the flagged harnesses may belong to the thorough tier only (larger bounds, slow ones)
-    (cd $V && VERIF_ONLY="$hits" python3 check.py $pid --tier thorough > $out/check_${pid}_thorough.txt 2>$out/check_${pid}_thorough.err; echo "exit=$? (tier thorough, restricted to the harnesses the native sweep flagged: $hits)" >> $out/check_${pid}_thorough.txt)
-    if grep -q "^VIOLATION" $out/check_${pid}_thorough.txt; then cp $out/check_${pid}_thorough.txt $out/check_$pid.txt; fi
-  fi
-fi
-if [ -z "$hits" ] || { ! grep -q "^VIOLATION" $out/check_$pid.txt && grep -q "no obligation was generated" $out/check_$pid.txt; }; then
-  (cd $V && python3 check.py $pid --tier $tier > $out/check_$pid.txt 2>$out/check_$pid.err; echo "exit=$? (tier $tier, full check; native sweep flagged nothing the restricted runs could decide)" >> $out/check_$pid.txt)
-fi
-$if [ -n "$hits" ]; then
-  (cd $V && VERIF_ONLY="$hits" python3 check.py $pid --tier $tier > $out/check_$pid.txt 2>$out/check_$pid.err; echo "exit=$? (tier $tier, restricted to the harnesses the native sweep flagged: $hits)" >> $out/check_$pid.txt)
-  if ! grep -q "^VIOLATION" $out/check_$pid.txt && [ "$tier" = quick ]; then
-    # the flagged harnesses may belong to the thorough tier only (larger bounds, slow ones)
-    (cd $V && VERIF_ONLY="$hits" python3 check.py $pid --tier thorough > $out/check_${pid}_thorough.txt 2>$out/check_${pid}_thorough.err; echo "exit=$? (tier thorough, restricted to the harnesses the native sweep flagged: $hits)" >> $out/check_${pid}_thorough.txt)
-    if grep -q "^VIOLATION" $out/check_${pid}_thorough.txt; then cp $out/check_${pid}_thorough.txt $out/check_$pid.txt; fi
-  fi
-fi
-if [ -z "$hits" ] || { ! grep -q "^VIOLATION" $out/check_$pid.txt && grep -q "no obligation was generated" $out/check_$pid.txt; }; then
-  (cd $V && python3 check.py $pid --tier $tier > $out/check_$pid.txt 2>$out/check_$pid.err; echo "exit=$? (tier $tier, full check; native sweep flagged nothing the restricted runs could decide)" >> $out/check_$pid.txt)
-fi
-'if [ -n "$hits" ]; then
-  (cd $V && VERIF_ONLY="$hits" python3 check.py $pid --tier $tier > $out/check_$pid.txt 2>$out/check_$pid.err; echo "exit=$? (tier $tier, restricted to the harnesses the native sweep flagged: $hits)" >> $out/check_$pid.txt)
-  if ! grep -q "^VIOLATION" $out/check_$pid.txt && [ "$tier" = quick ]; then
-    # the flagged harnesses may belong to the thorough tier only (larger bounds, slow ones)
-    (cd $V && VERIF_ONLY="$hits" python3 check.py $pid --tier thorough > $out/check_${pid}_thorough.txt 2>$out/check_${pid}_thorough.err; echo "exit=$? (tier thorough, restricted to the harnesses the native sweep flagged: $hits)" >> $out/check_${pid}_thorough.txt)
-    if grep -q "^VIOLATION" $out/check_${pid}_thorough.txt; then cp $out/check_${pid}_thorough.txt $out/check_$pid.txt; fi
-  fi
-fi
-if [ -z "$hits" ] || { ! grep -q "^VIOLATION" $out/check_$pid.txt && grep -q "no obligation was generated" $out/check_$pid.txt; }; then
-  (cd $V && python3 check.py $pid --tier $tier > $out/check_$pid.txt 2>$out/check_$pid.err; echo "exit=$? (tier $tier, full check; native sweep flagged nothing the restricted runs could decide)" >> $out/check_$pid.txt)
-fi
- if [ -n "$hits" ]; then
-  (cd $V && VERIF_ONLY="$hits" python3 check.py $pid --tier $tier > $out/check_$pid.txt 2>$out/check_$pid.err; echo "exit=$? (tier $tier, restricted to the harnesses the native sweep flagged: $hits)" >> $out/check_$pid.txt)
-  if ! grep -q "^VIOLATION" $out/check_$pid.txt && [ "$tier" = quick ]; then
-    # the flagged harnesses may belong to the thorough tier only (larger bounds, slow ones)
-    (cd $V && VERIF_ONLY="$hits" python3 check.py $pid --tier thorough > $out/check_${pid}_thorough.txt 2>$out/check_${pid}_thorough.err; echo "exit=$? (tier thorough, restricted to the harnesses the native sweep flagged: $hits)" >> $out/check_${pid}_thorough.txt)
-    if grep -q "^VIOLATION" $out/check_${pid}_thorough.txt; then cp $out/check_${pid}_thorough.txt $out/check_$pid.txt; fi
-  fi
-fi
-if [ -z "$hits" ] || { ! grep -q "^VIOLATION" $out/check_$pid.txt && grep -q "no obligation was generated" $out/check_$pid.txt; }; then
-  (cd $V && python3 check.py $pid --tier $tier > $out/check_$pid.txt 2>$out/check_$pid.err; echo "exit=$? (tier $tier, full check; native sweep flagged nothing the restricted runs could decide)" >> $out/check_$pid.txt)
-fi
-iif [ -n "$hits" ]; then
-  (cd $V && VERIF_ONLY="$hits" python3 check.py $pid --tier $tier > $out/check_$pid.txt 2>$out/check_$pid.err; echo "exit=$? (tier $tier, restricted to the harnesses the native sweep flagged: $hits)" >> $out/check_$pid.txt)
-  if ! grep -q "^VIOLATION" $out/check_$pid.txt && [ "$tier" = quick ]; then
-    # the flagged harnesses may belong to the thorough tier only (larger bounds, slow ones)
-    (cd $V && VERIF_ONLY="$hits" python3 check.py $pid --tier thorough > $out/check_${pid}_thorough.txt 2>$out/check_${pid}_thorough.err; echo "exit=$? (tier thorough, restricted to the harnesses the native sweep flagged: $hits)" >> $out/check_${pid}_thorough.txt)
-    if grep -q "^VIOLATION" $out/check_${pid}_thorough.txt; then cp $out/check_${pid}_thorough.txt $out/check_$pid.txt; fi
-  fi
-fi
-if [ -z "$hits" ] || { ! grep -q "^VIOLATION" $out/check_$pid.txt && grep -q "no obligation was generated" $out/check_$pid.txt; }; then
-  (cd $V && python3 check.py $pid --tier $tier > $out/check_$pid.txt 2>$out/check_$pid.err; echo "exit=$? (tier $tier, full check; native sweep flagged nothing the restricted runs could decide)" >> $out/check_$pid.txt)
-fi
-fif [ -n "$hits" ]; then
-  (cd $V && VERIF_ONLY="$hits" python3 check.py $pid --tier $tier > $out/check_$pid.txt 2>$out/check_$pid.err; echo "exit=$? (tier $tier, restricted to the harnesses the native sweep flagged: $hits)" >> $out/check_$pid.txt)
-  if ! grep -q "^VIOLATION" $out/check_$pid.txt && [ "$tier" = quick ]; then
-    # the flagged harnesses may belong to the thorough tier only (larger bounds, slow ones)
-    (cd $V && VERIF_ONLY="$hits" python3 check.py $pid --tier thorough > $out/check_${pid}_thorough.txt 2>$out/check_${pid}_thorough.err; echo "exit=$? (tier thorough, restricted to the harnesses the native sweep flagged: $hits)" >> $out/check_${pid}_thorough.txt)
-    if grep -q "^VIOLATION" $out/check_${pid}_thorough.txt; then cp $out/check_${pid}_thorough.txt $out/check_$pid.txt; fi
-  fi
-fi
-if [ -z "$hits" ] || { ! grep -q "^VIOLATION" $out/check_$pid.txt && grep -q "no obligation was generated" $out/check_$pid.txt; }; then
-  (cd $V && python3 check.py $pid --tier $tier > $out/check_$pid.txt 2>$out/check_$pid.err; echo "exit=$? (tier $tier, full check; native sweep flagged nothing the restricted runs could decide)" >> $out/check_$pid.txt)
-fi
- if [ -n "$hits" ]; then
-  (cd $V && VERIF_ONLY="$hits" python3 check.py $pid --tier $tier > $out/check_$pid.txt 2>$out/check_$pid.err; echo "exit=$? (tier $tier, restricted to the harnesses the native sweep flagged: $hits)" >> $out/check_$pid.txt)
-  if ! grep -q "^VIOLATION" $out/check_$pid.txt && [ "$tier" = quick ]; then
-    # the flagged harnesses may belong to the thorough tier only (larger bounds, slow ones)
-    (cd $V && VERIF_ONLY="$hits" python3 check.py $pid --tier thorough > $out/check_${pid}_thorough.txt 2>$out/check_${pid}_thorough.err; echo "exit=$? (tier thorough, restricted to the harnesses the native sweep flagged: $hits)" >> $out/check_${pid}_thorough.txt)
-    if grep -q "^VIOLATION" $out/check_${pid}_thorough.txt; then cp $out/check_${pid}_thorough.txt $out/check_$pid.txt; fi
-  fi
-fi
-if [ -z "$hits" ] || { ! grep -q "^VIOLATION" $out/check_$pid.txt && grep -q "no obligation was generated" $out/check_$pid.txt; }; then
-  (cd $V && python3 check.py $pid --tier $tier > $out/check_$pid.txt 2>$out/check_$pid.err; echo "exit=$? (tier $tier, full check; native sweep flagged nothing the restricted runs could decide)" >> $out/check_$pid.txt)
-fi
-lif [ -n "$hits" ]; then
-  (cd $V && VERIF_ONLY="$hits" python3 check.py $pid --tier $tier > $out/check_$pid.txt 2>$out/check_$pid.err; echo "exit=$? (tier $tier, restricted to the harnesses the native sweep flagged: $hits)" >> $out/check_$pid.txt)
-  if ! grep -q "^VIOLATION" $out/check_$pid.txt && [ "$tier" = quick ]; then
-    # the flagged harnesses may belong to the thorough tier only (larger bounds, slow ones)
-    (cd $V && VERIF_ONLY="$hits" python3 check.py $pid --tier thorough > $out/check_${pid}_thorough.txt 2>$out/check_${pid}_thorough.err; echo "exit=$? (tier thorough, restricted to the harnesses the native sweep flagged: $hits)" >> $out/check_${pid}_thorough.txt)
-    if grep -q "^VIOLATION" $out/check_${pid}_thorough.txt; then cp $out/check_${pid}_thorough.txt $out/check_$pid.txt; fi
-  fi
-fi
-if [ -z "$hits" ] || { ! grep -q "^VIOLATION" $out/check_$pid.txt && grep -q "no obligation was generated" $out/check_$pid.txt; }; then
-  (cd $V && python3 check.py $pid --tier $tier > $out/check_$pid.txt 2>$out/check_$pid.err; echo "exit=$? (tier $tier, full check; native sweep flagged nothing the restricted runs could decide)" >> $out/check_$pid.txt)
-fi
- if [ -n "$hits" ]; then
-  (cd $V && VERIF_ONLY="$hits" python3 check.py $pid --tier $tier > $out/check_$pid.txt 2>$out/check_$pid.err; echo "exit=$? (tier $tier, restricted to the harnesses the native sweep flagged: $hits)" >> $out/check_$pid.txt)
-  if ! grep -q "^VIOLATION" $out/check_$pid.txt && [ "$tier" = quick ]; then
-    # the flagged harnesses may belong to the thorough tier only (larger bounds, slow ones)
-    (cd $V && VERIF_ONLY="$hits" python3 check.py $pid --tier thorough > $out/check_${pid}_thorough.txt 2>$out/check_${pid}_thorough.err; echo "exit=$? (tier thorough, restricted to the harnesses the native sweep flagged: $hits)" >> $out/check_${pid}_thorough.txt)
-    if grep -q "^VIOLATION" $out/check_${pid}_thorough.txt; then cp $out/check_${pid}_thorough.txt $out/check_$pid.txt; fi
-  fi
-fi
-if [ -z "$hits" ] || { ! grep -q "^VIOLATION" $out/check_$pid.txt && grep -q "no obligation was generated" $out/check_$pid.txt; }; then
-  (cd $V && python3 check.py $pid --tier $tier > $out/check_$pid.txt 2>$out/check_$pid.err; echo "exit=$? (tier $tier, full check; native sweep flagged nothing the restricted runs could decide)" >> $out/check_$pid.txt)
-fi
-eif [ -n "$hits" ]; then
-  (cd $V && VERIF_ONLY="$hits" python3 check.py $pid --tier $tier > $out/check_$pid.txt 2>$out/check_$pid.err; echo "exit=$? (tier $tier, restricted to the harnesses the native sweep flagged: $hits)" >> $out/check_$pid.txt)
-  if ! grep -q "^VIOLATION" $out/check_$pid.txt && [ "$tier" = quick ]; then
-    # the flagged harnesses may belong to the thorough tier only (larger bounds, slow ones)
-    (cd $V && VERIF_ONLY="$hits" python3 check.py $pid --tier thorough > $out/check_${pid}_thorough.txt 2>$out/check_${pid}_thorough.err; echo "exit=$? (tier thorough, restricted to the harnesses the native sweep flagged: $hits)" >> $out/check_${pid}_thorough.txt)
-    if grep -q "^VIOLATION" $out/check_${pid}_thorough.txt; then cp $out/check_${pid}_thorough.txt $out/check_$pid.txt; fi
-  fi
-fi
-if [ -z "$hits" ] || { ! grep -q "^VIOLATION" $out/check_$pid.txt && grep -q "no obligation was generated" $out/check_$pid.txt; }; then
-  (cd $V && python3 check.py $pid --tier $tier > $out/check_$pid.txt 2>$out/check_$pid.err; echo "exit=$? (tier $tier, full check; native sweep flagged nothing the restricted runs could decide)" >> $out/check_$pid.txt)
-fi
-lif [ -n "$hits" ]; then
-  (cd $V && VERIF_ONLY="$hits" python3 check.py $pid --tier $tier > $out/check_$pid.txt 2>$out/check_$pid.err; echo "exit=$? (tier $tier, restricted to the harnesses the native sweep flagged: $hits)" >> $out/check_$pid.txt)
-  if ! grep -q "^VIOLATION" $out/check_$pid.txt && [ "$tier" = quick ]; then
-    # the flagged harnesses may belong to the thorough tier only (larger bounds, slow ones)
-    (cd $V && VERIF_ONLY="$hits" python3 check.py $pid --tier thorough > $out/check_${pid}_thorough.txt 2>$out/check_${pid}_thorough.err; echo "exit=$? (tier thorough, restricted to the harnesses the native sweep flagged: $hits)" >> $out/check_${pid}_thorough.txt)
-    if grep -q "^VIOLATION" $out/check_${pid}_thorough.txt; then cp $out/check_${pid}_thorough.txt $out/check_$pid.txt; fi
-  fi
-fi
-if [ -z "$hits" ] || { ! grep -q "^VIOLATION" $out/check_$pid.txt && grep -q "no obligation was generated" $out/check_$pid.txt; }; then
-  (cd $V && python3 check.py $pid --tier $tier > $out/check_$pid.txt 2>$out/check_$pid.err; echo "exit=$? (tier $tier, full check; native sweep flagged nothing the restricted runs could decide)" >> $out/check_$pid.txt)
-fi
-sif [ -n "$hits" ]; then
-  (cd $V && VERIF_ONLY="$hits" python3 check.py $pid --tier $tier > $out/check_$pid.txt 2>$out/check_$pid.err; echo "exit=$? (tier $tier, restricted to the harnesses the native sweep flagged: $hits)" >> $out/check_$pid.txt)
-  if ! grep -q "^VIOLATION" $out/check_$pid.txt && [ "$tier" = quick ]; then
-    # the flagged harnesses may belong to the thorough tier only (larger bounds, slow ones)
-    (cd $V && VERIF_ONLY="$hits" python3 check.py $pid --tier thorough > $out/check_${pid}_thorough.txt 2>$out/check_${pid}_thorough.err; echo "exit=$? (tier thorough, restricted to the harnesses the native sweep flagged: $hits)" >> $out/check_${pid}_thorough.txt)
-    if grep -q "^VIOLATION" $out/check_${pid}_thorough.txt; then cp $out/check_${pid}_thorough.txt $out/check_$pid.txt; fi
-  fi
-fi
-if [ -z "$hits" ] || { ! grep -q "^VIOLATION" $out/check_$pid.txt && grep -q "no obligation was generated" $out/check_$pid.txt; }; then
-  (cd $V && python3 check.py $pid --tier $tier > $out/check_$pid.txt 2>$out/check_$pid.err; echo "exit=$? (tier $tier, full check; native sweep flagged nothing the restricted runs could decide)" >> $out/check_$pid.txt)
-fi
-eif [ -n "$hits" ]; then
-  (cd $V && VERIF_ONLY="$hits" python3 check.py $pid --tier $tier > $out/check_$pid.txt 2>$out/check_$pid.err; echo "exit=$? (tier $tier, restricted to the harnesses the native sweep flagged: $hits)" >> $out/check_$pid.txt)
-  if ! grep -q "^VIOLATION" $out/check_$pid.txt && [ "$tier" = quick ]; then
-    # the flagged harnesses may belong to the thorough tier only (larger bounds, slow ones)
-    (cd $V && VERIF_ONLY="$hits" python3 check.py $pid --tier thorough > $out/check_${pid}_thorough.txt 2>$out/check_${pid}_thorough.err; echo "exit=$? (tier thorough, restricted to the harnesses the native sweep flagged: $hits)" >> $out/check_${pid}_thorough.txt)
-    if grep -q "^VIOLATION" $out/check_${pid}_thorough.txt; then cp $out/check_${pid}_thorough.txt $out/check_$pid.txt; fi
-  fi
-fi
-if [ -z "$hits" ] || { ! grep -q "^VIOLATION" $out/check_$pid.txt && grep -q "no obligation was generated" $out/check_$pid.txt; }; then
-  (cd $V && python3 check.py $pid --tier $tier > $out/check_$pid.txt 2>$out/check_$pid.err; echo "exit=$? (tier $tier, full check; native sweep flagged nothing the restricted runs could decide)" >> $out/check_$pid.txt)
-fi
- if [ -n "$hits" ]; then
-  (cd $V && VERIF_ONLY="$hits" python3 check.py $pid --tier $tier > $out/check_$pid.txt 2>$out/check_$pid.err; echo "exit=$? (tier $tier, restricted to the harnesses the native sweep flagged: $hits)" >> $out/check_$pid.txt)
-  if ! grep -q "^VIOLATION" $out/check_$pid.txt && [ "$tier" = quick ]; then
-    # the flagged harnesses may belong to the thorough tier only (larger bounds, slow ones)
-    (cd $V && VERIF_ONLY="$hits" python3 check.py $pid --tier thorough > $out/check_${pid}_thorough.txt 2>$out/check_${pid}_thorough.err; echo "exit=$? (tier thorough, restricted to the harnesses the native sweep flagged: $hits)" >> $out/check_${pid}_thorough.txt)
-    if grep -q "^VIOLATION" $out/check_${pid}_thorough.txt; then cp $out/check_${pid}_thorough.txt $out/check_$pid.txt; fi
-  fi
-fi
-if [ -z "$hits" ] || { ! grep -q "^VIOLATION" $out/check_$pid.txt && grep -q "no obligation was generated" $out/check_$pid.txt; }; then
-  (cd $V && python3 check.py $pid --tier $tier > $out/check_$pid.txt 2>$out/check_$pid.err; echo "exit=$? (tier $tier, full check; native sweep flagged nothing the restricted runs could decide)" >> $out/check_$pid.txt)
-fi
-'if [ -n "$hits" ]; then
-  (cd $V && VERIF_ONLY="$hits" python3 check.py $pid --tier $tier > $out/check_$pid.txt 2>$out/check_$pid.err; echo "exit=$? (tier $tier, restricted to the harnesses the native sweep flagged: $hits)" >> $out/check_$pid.txt)
-  if ! grep -q "^VIOLATION" $out/check_$pid.txt && [ "$tier" = quick ]; then
-    # the flagged harnesses may belong to the thorough tier only (larger bounds, slow ones)
-    (cd $V && VERIF_ONLY="$hits" python3 check.py $pid --tier thorough > $out/check_${pid}_thorough.txt 2>$out/check_${pid}_thorough.err; echo "exit=$? (tier thorough, restricted to the harnesses the native sweep flagged: $hits)" >> $out/check_${pid}_thorough.txt)
-    if grep -q "^VIOLATION" $out/check_${pid}_thorough.txt; then cp $out/check_${pid}_thorough.txt $out/check_$pid.txt; fi
-  fi
-fi
-if [ -z "$hits" ] || { ! grep -q "^VIOLATION" $out/check_$pid.txt && grep -q "no obligation was generated" $out/check_$pid.txt; }; then
-  (cd $V && python3 check.py $pid --tier $tier > $out/check_$pid.txt 2>$out/check_$pid.err; echo "exit=$? (tier $tier, full check; native sweep flagged nothing the restricted runs could decide)" >> $out/check_$pid.txt)
-fi
-'if [ -n "$hits" ]; then
-  (cd $V && VERIF_ONLY="$hits" python3 check.py $pid --tier $tier > $out/check_$pid.txt 2>$out/check_$pid.err; echo "exit=$? (tier $tier, restricted to the harnesses the native sweep flagged: $hits)" >> $out/check_$pid.txt)
-  if ! grep -q "^VIOLATION" $out/check_$pid.txt && [ "$tier" = quick ]; then
-    # the flagged harnesses may belong to the thorough tier only (larger bounds, slow ones)
-    (cd $V && VERIF_ONLY="$hits" python3 check.py $pid --tier thorough > $out/check_${pid}_thorough.txt 2>$out/check_${pid}_thorough.err; echo "exit=$? (tier thorough, restricted to the harnesses the native sweep flagged: $hits)" >> $out/check_${pid}_thorough.txt)
-    if grep -q "^VIOLATION" $out/check_${pid}_thorough.txt; then cp $out/check_${pid}_thorough.txt $out/check_$pid.txt; fi
-  fi
-fi
-if [ -z "$hits" ] || { ! grep -q "^VIOLATION" $out/check_$pid.txt && grep -q "no obligation was generated" $out/check_$pid.txt; }; then
-  (cd $V && python3 check.py $pid --tier $tier > $out/check_$pid.txt 2>$out/check_$pid.err; echo "exit=$? (tier $tier, full check; native sweep flagged nothing the restricted runs could decide)" >> $out/check_$pid.txt)
-fi
-)if [ -n "$hits" ]; then
-  (cd $V && VERIF_ONLY="$hits" python3 check.py $pid --tier $tier > $out/check_$pid.txt 2>$out/check_$pid.err; echo "exit=$? (tier $tier, restricted to the harnesses the native sweep flagged: $hits)" >> $out/check_$pid.txt)
-  if ! grep -q "^VIOLATION" $out/check_$pid.txt && [ "$tier" = quick ]; then
-    # the flagged harnesses may belong to the thorough tier only (larger bounds, slow ones)
-    (cd $V && VERIF_ONLY="$hits" python3 check.py $pid --tier thorough > $out/check_${pid}_thorough.txt 2>$out/check_${pid}_thorough.err; echo "exit=$? (tier thorough, restricted to the harnesses the native sweep flagged: $hits)" >> $out/check_${pid}_thorough.txt)
-    if grep -q "^VIOLATION" $out/check_${pid}_thorough.txt; then cp $out/check_${pid}_thorough.txt $out/check_$pid.txt; fi
-  fi
-fi
-if [ -z "$hits" ] || { ! grep -q "^VIOLATION" $out/check_$pid.txt && grep -q "no obligation was generated" $out/check_$pid.txt; }; then
-  (cd $V && python3 check.py $pid --tier $tier > $out/check_$pid.txt 2>$out/check_$pid.err; echo "exit=$? (tier $tier, full check; native sweep flagged nothing the restricted runs could decide)" >> $out/check_$pid.txt)
-fi
-"if [ -n "$hits" ]; then
-  (cd $V && VERIF_ONLY="$hits" python3 check.py $pid --tier $tier > $out/check_$pid.txt 2>$out/check_$pid.err; echo "exit=$? (tier $tier, restricted to the harnesses the native sweep flagged: $hits)" >> $out/check_$pid.txt)
-  if ! grep -q "^VIOLATION" $out/check_$pid.txt && [ "$tier" = quick ]; then
-    # the flagged harnesses may belong to the thorough tier only (larger bounds, slow ones)
-    (cd $V && VERIF_ONLY="$hits" python3 check.py $pid --tier thorough > $out/check_${pid}_thorough.txt 2>$out/check_${pid}_thorough.err; echo "exit=$? (tier thorough, restricted to the harnesses the native sweep flagged: $hits)" >> $out/check_${pid}_thorough.txt)
-    if grep -q "^VIOLATION" $out/check_${pid}_thorough.txt; then cp $out/check_${pid}_thorough.txt $out/check_$pid.txt; fi
-  fi
-fi
-if [ -z "$hits" ] || { ! grep -q "^VIOLATION" $out/check_$pid.txt && grep -q "no obligation was generated" $out/check_$pid.txt; }; then
-  (cd $V && python3 check.py $pid --tier $tier > $out/check_$pid.txt 2>$out/check_$pid.err; echo "exit=$? (tier $tier, full check; native sweep flagged nothing the restricted runs could decide)" >> $out/check_$pid.txt)
-fi
-)if [ -n "$hits" ]; then
-  (cd $V && VERIF_ONLY="$hits" python3 check.py $pid --tier $tier > $out/check_$pid.txt 2>$out/check_$pid.err; echo "exit=$? (tier $tier, restricted to the harnesses the native sweep flagged: $hits)" >> $out/check_$pid.txt)
-  if ! grep -q "^VIOLATION" $out/check_$pid.txt && [ "$tier" = quick ]; then
-    # the flagged harnesses may belong to the thorough tier only (larger bounds, slow ones)
-    (cd $V && VERIF_ONLY="$hits" python3 check.py $pid --tier thorough > $out/check_${pid}_thorough.txt 2>$out/check_${pid}_thorough.err; echo "exit=$? (tier thorough, restricted to the harnesses the native sweep flagged: $hits)" >> $out/check_${pid}_thorough.txt)
-    if grep -q "^VIOLATION" $out/check_${pid}_thorough.txt; then cp $out/check_${pid}_thorough.txt $out/check_$pid.txt; fi
-  fi
-fi
-if [ -z "$hits" ] || { ! grep -q "^VIOLATION" $out/check_$pid.txt && grep -q "no obligation was generated" $out/check_$pid.txt; }; then
-  (cd $V && python3 check.py $pid --tier $tier > $out/check_$pid.txt 2>$out/check_$pid.err; echo "exit=$? (tier $tier, full check; native sweep flagged nothing the restricted runs could decide)" >> $out/check_$pid.txt)
-fi
-
-if [ -n "$hits" ]; then
-  (cd $V && VERIF_ONLY="$hits" python3 check.py $pid --tier $tier > $out/check_$pid.txt 2>$out/check_$pid.err; echo "exit=$? (tier $tier, restricted to the harnesses the native sweep flagged: $hits)" >> $out/check_$pid.txt)
-  if ! grep -q "^VIOLATION" $out/check_$pid.txt && [ "$tier" = quick ]; then
-    # the flagged harnesses may belong to the thorough tier only (larger bounds, slow ones)
-    (cd $V && VERIF_ONLY="$hits" python3 check.py $pid --tier thorough > $out/check_${pid}_thorough.txt 2>$out/check_${pid}_thorough.err; echo "exit=$? (tier thorough, restricted to the harnesses the native sweep flagged: $hits)" >> $out/check_${pid}_thorough.txt)
-    if grep -q "^VIOLATION" $out/check_${pid}_thorough.txt; then cp $out/check_${pid}_thorough.txt $out/check_$pid.txt; fi
-  fi
-fi
-if [ -z "$hits" ] || { ! grep -q "^VIOLATION" $out/check_$pid.txt && grep -q "no obligation was generated" $out/check_$pid.txt; }; then
-  (cd $V && python3 check.py $pid --tier $tier > $out/check_$pid.txt 2>$out/check_$pid.err; echo "exit=$? (tier $tier, full check; native sweep flagged nothing the restricted runs could decide)" >> $out/check_$pid.txt)
-fi
-iif [ -n "$hits" ]; then
-  (cd $V && VERIF_ONLY="$hits" python3 check.py $pid --tier $tier > $out/check_$pid.txt 2>$out/check_$pid.err; echo "exit=$? (tier $tier, restricted to the harnesses the native sweep flagged: $hits)" >> $out/check_$pid.txt)
-  if ! grep -q "^VIOLATION" $out/check_$pid.txt && [ "$tier" = quick ]; then
-    # the flagged harnesses may belong to the thorough tier only (larger bounds, slow ones)
-    (cd $V && VERIF_ONLY="$hits" python3 check.py $pid --tier thorough > $out/check_${pid}_thorough.txt 2>$out/check_${pid}_thorough.err; echo "exit=$? (tier thorough, restricted to the harnesses the native sweep flagged: $hits)" >> $out/check_${pid}_thorough.txt)
-    if grep -q "^VIOLATION" $out/check_${pid}_thorough.txt; then cp $out/check_${pid}_thorough.txt $out/check_$pid.txt; fi
-  fi
-fi
-if [ -z "$hits" ] || { ! grep -q "^VIOLATION" $out/check_$pid.txt && grep -q "no obligation was generated" $out/check_$pid.txt; }; then
-  (cd $V && python3 check.py $pid --tier $tier > $out/check_$pid.txt 2>$out/check_$pid.err; echo "exit=$? (tier $tier, full check; native sweep flagged nothing the restricted runs could decide)" >> $out/check_$pid.txt)
-fi
-fif [ -n "$hits" ]; then
-  (cd $V && VERIF_ONLY="$hits" python3 check.py $pid --tier $tier > $out/check_$pid.txt 2>$out/check_$pid.err; echo "exit=$? (tier $tier, restricted to the harnesses the native sweep flagged: $hits)" >> $out/check_$pid.txt)
-  if ! grep -q "^VIOLATION" $out/check_$pid.txt && [ "$tier" = quick ]; then
-    # the flagged harnesses may belong to the thorough tier only (larger bounds, slow ones)
-    (cd $V && VERIF_ONLY="$hits" python3 check.py $pid --tier thorough > $out/check_${pid}_thorough.txt 2>$out/check_${pid}_thorough.err; echo "exit=$? (tier thorough, restricted to the harnesses the native sweep flagged: $hits)" >> $out/check_${pid}_thorough.txt)
-    if grep -q "^VIOLATION" $out/check_${pid}_thorough.txt; then cp $out/check_${pid}_thorough.txt $out/check_$pid.txt; fi
-  fi
-fi
-if [ -z "$hits" ] || { ! grep -q "^VIOLATION" $out/check_$pid.txt && grep -q "no obligation was generated" $out/check_$pid.txt; }; then
-  (cd $V && python3 check.py $pid --tier $tier > $out/check_$pid.txt 2>$out/check_$pid.err; echo "exit=$? (tier $tier, full check; native sweep flagged nothing the restricted runs could decide)" >> $out/check_$pid.txt)
-fi
- if [ -n "$hits" ]; then
-  (cd $V && VERIF_ONLY="$hits" python3 check.py $pid --tier $tier > $out/check_$pid.txt 2>$out/check_$pid.err; echo "exit=$? (tier $tier, restricted to the harnesses the native sweep flagged: $hits)" >> $out/check_$pid.txt)
-  if ! grep -q "^VIOLATION" $out/check_$pid.txt && [ "$tier" = quick ]; then
-    # the flagged harnesses may belong to the thorough tier only (larger bounds, slow ones)
-    (cd $V && VERIF_ONLY="$hits" python3 check.py $pid --tier thorough > $out/check_${pid}_thorough.txt 2>$out/check_${pid}_thorough.err; echo "exit=$? (tier thorough, restricted to the harnesses the native sweep flagged: $hits)" >> $out/check_${pid}_thorough.txt)
-    if grep -q "^VIOLATION" $out/check_${pid}_thorough.txt; then cp $out/check_${pid}_thorough.txt $out/check_$pid.txt; fi
-  fi
-fi
-if [ -z "$hits" ] || { ! grep -q "^VIOLATION" $out/check_$pid.txt && grep -q "no obligation was generated" $out/check_$pid.txt; }; then
-  (cd $V && python3 check.py $pid --tier $tier > $out/check_$pid.txt 2>$out/check_$pid.err; echo "exit=$? (tier $tier, full check; native sweep flagged nothing the restricted runs could decide)" >> $out/check_$pid.txt)
-fi
-[if [ -n "$hits" ]; then
-  (cd $V && VERIF_ONLY="$hits" python3 check.py $pid --tier $tier > $out/check_$pid.txt 2>$out/check_$pid.err; echo "exit=$? (tier $tier, restricted to the harnesses the native sweep flagged: $hits)" >> $out/check_$pid.txt)
-  if ! grep -q "^VIOLATION" $out/check_$pid.txt && [ "$tier" = quick ]; then
-    # the flagged harnesses may belong to the thorough tier only (larger bounds, slow ones)
-    (cd $V && VERIF_ONLY="$hits" python3 check.py $pid --tier thorough > $out/check_${pid}_thorough.txt 2>$out/check_${pid}_thorough.err; echo "exit=$? (tier thorough, restricted to the harnesses the native sweep flagged: $hits)" >> $out/check_${pid}_thorough.txt)
-    if grep -q "^VIOLATION" $out/check_${pid}_thorough.txt; then cp $out/check_${pid}_thorough.txt $out/check_$pid.txt; fi
-  fi
-fi
-if [ -z "$hits" ] || { ! grep -q "^VIOLATION" $out/check_$pid.txt && grep -q "no obligation was generated" $out/check_$pid.txt; }; then
-  (cd $V && python3 check.py $pid --tier $tier > $out/check_$pid.txt 2>$out/check_$pid.err; echo "exit=$? (tier $tier, full check; native sweep flagged nothing the restricted runs could decide)" >> $out/check_$pid.txt)
-fi
- if [ -n "$hits" ]; then
-  (cd $V && VERIF_ONLY="$hits" python3 check.py $pid --tier $tier > $out/check_$pid.txt 2>$out/check_$pid.err; echo "exit=$? (tier $tier, restricted to the harnesses the native sweep flagged: $hits)" >> $out/check_$pid.txt)
-  if ! grep -q "^VIOLATION" $out/check_$pid.txt && [ "$tier" = quick ]; then
-    # the flagged harnesses may belong to the thorough tier only (larger bounds, slow ones)
-    (cd $V && VERIF_ONLY="$hits" python3 check.py $pid --tier thorough > $out/check_${pid}_thorough.txt 2>$out/check_${pid}_thorough.err; echo "exit=$? (tier thorough, restricted to the harnesses the native sweep flagged: $hits)" >> $out/check_${pid}_thorough.txt)
-    if grep -q "^VIOLATION" $out/check_${pid}_thorough.txt; then cp $out/check_${pid}_thorough.txt $out/check_$pid.txt; fi
-  fi
-fi
-if [ -z "$hits" ] || { ! grep -q "^VIOLATION" $out/check_$pid.txt && grep -q "no obligation was generated" $out/check_$pid.txt; }; then
-  (cd $V && python3 check.py $pid --tier $tier > $out/check_$pid.txt 2>$out/check_$pid.err; echo "exit=$? (tier $tier, full check; native sweep flagged nothing the restricted runs could decide)" >> $out/check_$pid.txt)
-fi
--if [ -n "$hits" ]; then
-  (cd $V && VERIF_ONLY="$hits" python3 check.py $pid --tier $tier > $out/check_$pid.txt 2>$out/check_$pid.err; echo "exit=$? (tier $tier, restricted to the harnesses the native sweep flagged: $hits)" >> $out/check_$pid.txt)
-  if ! grep -q "^VIOLATION" $out/check_$pid.txt && [ "$tier" = quick ]; then
-    # the flagged harnesses may belong to the thorough tier only (larger bounds, slow ones)
-    (cd $V && VERIF_ONLY="$hits" python3 check.py $pid --tier thorough > $out/check_${pid}_thorough.txt 2>$out/check_${pid}_thorough.err; echo "exit=$? (tier thorough, restricted to the harnesses the native sweep flagged: $hits)" >> $out/check_${pid}_thorough.txt)
-    if grep -q "^VIOLATION" $out/check_${pid}_thorough.txt; then cp $out/check_${pid}_thorough.txt $out/check_$pid.txt; fi
-  fi
-fi
-if [ -z "$hits" ] || { ! grep -q "^VIOLATION" $out/check_$pid.txt && grep -q "no obligation was generated" $out/check_$pid.txt; }; then
-  (cd $V && python3 check.py $pid --tier $tier > $out/check_$pid.txt 2>$out/check_$pid.err; echo "exit=$? (tier $tier, full check; native sweep flagged nothing the restricted runs could decide)" >> $out/check_$pid.txt)
-fi
-nif [ -n "$hits" ]; then
-  (cd $V && VERIF_ONLY="$hits" python3 check.py $pid --tier $tier > $out/check_$pid.txt 2>$out/check_$pid.err; echo "exit=$? (tier $tier, restricted to the harnesses the native sweep flagged: $hits)" >> $out/check_$pid.txt)
-  if ! grep -q "^VIOLATION" $out/check_$pid.txt && [ "$tier" = quick ]; then
-    # the flagged harnesses may belong to the thorough tier only (larger bounds, slow ones)
-    (cd $V && VERIF_ONLY="$hits" python3 check.py $pid --tier thorough > $out/check_${pid}_thorough.txt 2>$out/check_${pid}_thorough.err; echo "exit=$? (tier thorough, restricted to the harnesses the native sweep flagged: $hits)" >> $out/check_${pid}_thorough.txt)
-    if grep -q "^VIOLATION" $out/check_${pid}_thorough.txt; then cp $out/check_${pid}_thorough.txt $out/check_$pid.txt; fi
-  fi
-fi
-if [ -z "$hits" ] || { ! grep -q "^VIOLATION" $out/check_$pid.txt && grep -q "no obligation was generated" $out/check_$pid.txt; }; then
-  (cd $V && python3 check.py $pid --tier $tier > $out/check_$pid.txt 2>$out/check_$pid.err; echo "exit=$? (tier $tier, full check; native sweep flagged nothing the restricted runs could decide)" >> $out/check_$pid.txt)
-fi
- if [ -n "$hits" ]; then
-  (cd $V && VERIF_ONLY="$hits" python3 check.py $pid --tier $tier > $out/check_$pid.txt 2>$out/check_$pid.err; echo "exit=$? (tier $tier, restricted to the harnesses the native sweep flagged: $hits)" >> $out/check_$pid.txt)
-  if ! grep -q "^VIOLATION" $out/check_$pid.txt && [ "$tier" = quick ]; then
-    # the flagged harnesses may belong to the thorough tier only (larger bounds, slow ones)
-    (cd $V && VERIF_ONLY="$hits" python3 check.py $pid --tier thorough > $out/check_${pid}_thorough.txt 2>$out/check_${pid}_thorough.err; echo "exit=$? (tier thorough, restricted to the harnesses the native sweep flagged: $hits)" >> $out/check_${pid}_thorough.txt)
-    if grep -q "^VIOLATION" $out/check_${pid}_thorough.txt; then cp $out/check_${pid}_thorough.txt $out/check_$pid.txt; fi
-  fi
-fi
-if [ -z "$hits" ] || { ! grep -q "^VIOLATION" $out/check_$pid.txt && grep -q "no obligation was generated" $out/check_$pid.txt; }; then
-  (cd $V && python3 check.py $pid --tier $tier > $out/check_$pid.txt 2>$out/check_$pid.err; echo "exit=$? (tier $tier, full check; native sweep flagged nothing the restricted runs could decide)" >> $out/check_$pid.txt)
-fi
-"if [ -n "$hits" ]; then
-  (cd $V && VERIF_ONLY="$hits" python3 check.py $pid --tier $tier > $out/check_$pid.txt 2>$out/check_$pid.err; echo "exit=$? (tier $tier, restricted to the harnesses the native sweep flagged: $hits)" >> $out/check_$pid.txt)
-  if ! grep -q "^VIOLATION" $out/check_$pid.txt && [ "$tier" = quick ]; then
-    # the flagged harnesses may belong to the thorough tier only (larger bounds, slow ones)
-    (cd $V && VERIF_ONLY="$hits" python3 check.py $pid --tier thorough > $out/check_${pid}_thorough.txt 2>$out/check_${pid}_thorough.err; echo "exit=$? (tier thorough, restricted to the harnesses the native sweep flagged: $hits)" >> $out/check_${pid}_thorough.txt)
-    if grep -q "^VIOLATION" $out/check_${pid}_thorough.txt; then cp $out/check_${pid}_thorough.txt $out/check_$pid.txt; fi
-  fi
-fi
-if [ -z "$hits" ] || { ! grep -q "^VIOLATION" $out/check_$pid.txt && grep -q "no obligation was generated" $out/check_$pid.txt; }; then
-  (cd $V && python3 check.py $pid --tier $tier > $out/check_$pid.txt 2>$out/check_$pid.err; echo "exit=$? (tier $tier, full check; native sweep flagged nothing the restricted runs could decide)" >> $out/check_$pid.txt)
-fi
-$if [ -n "$hits" ]; then
-  (cd $V && VERIF_ONLY="$hits" python3 check.py $pid --tier $tier > $out/check_$pid.txt 2>$out/check_$pid.err; echo "exit=$? (tier $tier, restricted to the harnesses the native sweep flagged: $hits)" >> $out/check_$pid.txt)
-  if ! grep -q "^VIOLATION" $out/check_$pid.txt && [ "$tier" = quick ]; then
-    # the flagged harnesses may belong to the thorough tier only (larger bounds, slow ones)
-    (cd $V && VERIF_ONLY="$hits" python3 check.py $pid --tier thorough > $out/check_${pid}_thorough.txt 2>$out/check_${pid}_thorough.err; echo "exit=$? (tier thorough, restricted to the harnesses the native sweep flagged: $hits)" >> $out/check_${pid}_thorough.txt)
-    if grep -q "^VIOLATION" $out/check_${pid}_thorough.txt; then cp $out/check_${pid}_thorough.txt $out/check_$pid.txt; fi
-  fi
-fi
-if [ -z "$hits" ] || { ! grep -q "^VIOLATION" $out/check_$pid.txt && grep -q "no obligation was generated" $out/check_$pid.txt; }; then
-  (cd $V && python3 check.py $pid --tier $tier > $out/check_$pid.txt 2>$out/check_$pid.err; echo "exit=$? (tier $tier, full check; native sweep flagged nothing the restricted runs could decide)" >> $out/check_$pid.txt)
-fi
-hif [ -n "$hits" ]; then
-  (cd $V && VERIF_ONLY="$hits" python3 check.py $pid --tier $tier > $out/check_$pid.txt 2>$out/check_$pid.err; echo "exit=$? (tier $tier, restricted to the harnesses the native sweep flagged: $hits)" >> $out/check_$pid.txt)
-  if ! grep -q "^VIOLATION" $out/check_$pid.txt && [ "$tier" = quick ]; then
-    # the flagged harnesses may belong to the thorough tier only (larger bounds, slow ones)
-    (cd $V && VERIF_ONLY="$hits" python3 check.py $pid --tier thorough > $out/check_${pid}_thorough.txt 2>$out/check_${pid}_thorough.err; echo "exit=$? (tier thorough, restricted to the harnesses the native sweep flagged: $hits)" >> $out/check_${pid}_thorough.txt)
-    if grep -q "^VIOLATION" $out/check_${pid}_thorough.txt; then cp $out/check_${pid}_thorough.txt $out/check_$pid.txt; fi
-  fi
-fi
-if [ -z "$hits" ] || { ! grep -q "^VIOLATION" $out/check_$pid.txt && grep -q "no obligation was generated" $out/check_$pid.txt; }; then
-  (cd $V && python3 check.py $pid --tier $tier > $out/check_$pid.txt 2>$out/check_$pid.err; echo "exit=$? (tier $tier, full check; native sweep flagged nothing the restricted runs could decide)" >> $out/check_$pid.txt)
-fi
-iif [ -n "$hits" ]; then
-  (cd $V && VERIF_ONLY="$hits" python3 check.py $pid --tier $tier > $out/check_$pid.txt 2>$out/check_$pid.err; echo "exit=$? (tier $tier, restricted to the harnesses the native sweep flagged: $hits)" >> $out/check_$pid.txt)
-  if ! grep -q "^VIOLATION" $out/check_$pid.txt && [ "$tier" = quick ]; then
-    # the flagged harnesses may belong to the thorough tier only (larger bounds, slow ones)
-    (cd $V && VERIF_ONLY="$hits" python3 check.py $pid --tier thorough > $out/check_${pid}_thorough.txt 2>$out/check_${pid}_thorough.err; echo "exit=$? (tier thorough, restricted to the harnesses the native sweep flagged: $hits)" >> $out/check_${pid}_thorough.txt)
-    if grep -q "^VIOLATION" $out/check_${pid}_thorough.txt; then cp $out/check_${pid}_thorough.txt $out/check_$pid.txt; fi
-  fi
-fi
-if [ -z "$hits" ] || { ! grep -q "^VIOLATION" $out/check_$pid.txt && grep -q "no obligation was generated" $out/check_$pid.txt; }; then
-  (cd $V && python3 check.py $pid --tier $tier > $out/check_$pid.txt 2>$out/check_$pid.err; echo "exit=$? (tier $tier, full check; native sweep flagged nothing the restricted runs could decide)" >> $out/check_$pid.txt)
-fi
-tif [ -n "$hits" ]; then
-  (cd $V && VERIF_ONLY="$hits" python3 check.py $pid --tier $tier > $out/check_$pid.txt 2>$out/check_$pid.err; echo "exit=$? (tier $tier, restricted to the harnesses the native sweep flagged: $hits)" >> $out/check_$pid.txt)
-  if ! grep -q "^VIOLATION" $out/check_$pid.txt && [ "$tier" = quick ]; then
-    # the flagged harnesses may belong to the thorough tier only (larger bounds, slow ones)
-    (cd $V && VERIF_ONLY="$hits" python3 check.py $pid --tier thorough > $out/check_${pid}_thorough.txt 2>$out/check_${pid}_thorough.err; echo "exit=$? (tier thorough, restricted to the harnesses the native sweep flagged: $hits)" >> $out/check_${pid}_thorough.txt)
-    if grep -q "^VIOLATION" $out/check_${pid}_thorough.txt; then cp $out/check_${pid}_thorough.txt $out/check_$pid.txt; fi
-  fi
-fi
-if [ -z "$hits" ] || { ! grep -q "^VIOLATION" $out/check_$pid.txt && grep -q "no obligation was generated" $out/check_$pid.txt; }; then
-  (cd $V && python3 check.py $pid --tier $tier > $out/check_$pid.txt 2>$out/check_$pid.err; echo "exit=$? (tier $tier, full check; native sweep flagged nothing the restricted runs could decide)" >> $out/check_$pid.txt)
-fi
-sif [ -n "$hits" ]; then
-  (cd $V && VERIF_ONLY="$hits" python3 check.py $pid --tier $tier > $out/check_$pid.txt 2>$out/check_$pid.err; echo "exit=$? (tier $tier, restricted to the harnesses the native sweep flagged: $hits)" >> $out/check_$pid.txt)
-  if ! grep -q "^VIOLATION" $out/check_$pid.txt && [ "$tier" = quick ]; then
-    # the flagged harnesses may belong to the thorough tier only (larger bounds, slow ones)
-    (cd $V && VERIF_ONLY="$hits" python3 check.py $pid --tier thorough > $out/check_${pid}_thorough.txt 2>$out/check_${pid}_thorough.err; echo "exit=$? (tier thorough, restricted to the harnesses the native sweep flagged: $hits)" >> $out/check_${pid}_thorough.txt)
-    if grep -q "^VIOLATION" $out/check_${pid}_thorough.txt; then cp $out/check_${pid}_thorough.txt $out/check_$pid.txt; fi
-  fi
-fi
-if [ -z "$hits" ] || { ! grep -q "^VIOLATION" $out/check_$pid.txt && grep -q "no obligation was generated" $out/check_$pid.txt; }; then
-  (cd $V && python3 check.py $pid --tier $tier > $out/check_$pid.txt 2>$out/check_$pid.err; echo "exit=$? (tier $tier, full check; native sweep flagged nothing the restricted runs could decide)" >> $out/check_$pid.txt)
-fi
-"if [ -n "$hits" ]; then
-  (cd $V && VERIF_ONLY="$hits" python3 check.py $pid --tier $tier > $out/check_$pid.txt 2>$out/check_$pid.err; echo "exit=$? (tier $tier, restricted to the harnesses the native sweep flagged: $hits)" >> $out/check_$pid.txt)
-  if ! grep -q "^VIOLATION" $out/check_$pid.txt && [ "$tier" = quick ]; then
-    # the flagged harnesses may belong to the thorough tier only (larger bounds, slow ones)
-    (cd $V && VERIF_ONLY="$hits" python3 check.py $pid --tier thorough > $out/check_${pid}_thorough.txt 2>$out/check_${pid}_thorough.err; echo "exit=$? (tier thorough, restricted to the harnesses the native sweep flagged: $hits)" >> $out/check_${pid}_thorough.txt)
-    if grep -q "^VIOLATION" $out/check_${pid}_thorough.txt; then cp $out/check_${pid}_thorough.txt $out/check_$pid.txt; fi
-  fi
-fi
-if [ -z "$hits" ] || { ! grep -q "^VIOLATION" $out/check_$pid.txt && grep -q "no obligation was generated" $out/check_$pid.txt; }; then
-  (cd $V && python3 check.py $pid --tier $tier > $out/check_$pid.txt 2>$out/check_$pid.err; echo "exit=$? (tier $tier, full check; native sweep flagged nothing the restricted runs could decide)" >> $out/check_$pid.txt)
-fi
- if [ -n "$hits" ]; then
-  (cd $V && VERIF_ONLY="$hits" python3 check.py $pid --tier $tier > $out/check_$pid.txt 2>$out/check_$pid.err; echo "exit=$? (tier $tier, restricted to the harnesses the native sweep flagged: $hits)" >> $out/check_$pid.txt)
-  if ! grep -q "^VIOLATION" $out/check_$pid.txt && [ "$tier" = quick ]; then
-    # the flagged harnesses may belong to the thorough tier only (larger bounds, slow ones)
-    (cd $V && VERIF_ONLY="$hits" python3 check.py $pid --tier thorough > $out/check_${pid}_thorough.txt 2>$out/check_${pid}_thorough.err; echo "exit=$? (tier thorough, restricted to the harnesses the native sweep flagged: $hits)" >> $out/check_${pid}_thorough.txt)
-    if grep -q "^VIOLATION" $out/check_${pid}_thorough.txt; then cp $out/check_${pid}_thorough.txt $out/check_$pid.txt; fi
-  fi
-fi
-if [ -z "$hits" ] || { ! grep -q "^VIOLATION" $out/check_$pid.txt && grep -q "no obligation was generated" $out/check_$pid.txt; }; then
-  (cd $V && python3 check.py $pid --tier $tier > $out/check_$pid.txt 2>$out/check_$pid.err; echo "exit=$? (tier $tier, full check; native sweep flagged nothing the restricted runs could decide)" >> $out/check_$pid.txt)
-fi
-]if [ -n "$hits" ]; then
-  (cd $V && VERIF_ONLY="$hits" python3 check.py $pid --tier $tier > $out/check_$pid.txt 2>$out/check_$pid.err; echo "exit=$? (tier $tier, restricted to the harnesses the native sweep flagged: $hits)" >> $out/check_$pid.txt)
-  if ! grep -q "^VIOLATION" $out/check_$pid.txt && [ "$tier" = quick ]; then
-    # the flagged harnesses may belong to the thorough tier only (larger bounds, slow ones)
-    (cd $V && VERIF_ONLY="$hits" python3 check.py $pid --tier thorough > $out/check_${pid}_thorough.txt 2>$out/check_${pid}_thorough.err; echo "exit=$? (tier thorough, restricted to the harnesses the native sweep flagged: $hits)" >> $out/check_${pid}_thorough.txt)
-    if grep -q "^VIOLATION" $out/check_${pid}_thorough.txt; then cp $out/check_${pid}_thorough.txt $out/check_$pid.txt; fi
-  fi
-fi
-if [ -z "$hits" ] || { ! grep -q "^VIOLATION" $out/check_$pid.txt && grep -q "no obligation was generated" $out/check_$pid.txt; }; then
-  (cd $V && python3 check.py $pid --tier $tier > $out/check_$pid.txt 2>$out/check_$pid.err; echo "exit=$? (tier $tier, full check; native sweep flagged nothing the restricted runs could decide)" >> $out/check_$pid.txt)
-fi
-;if [ -n "$hits" ]; then
-  (cd $V && VERIF_ONLY="$hits" python3 check.py $pid --tier $tier > $out/check_$pid.txt 2>$out/check_$pid.err; echo "exit=$? (tier $tier, restricted to the harnesses the native sweep flagged: $hits)" >> $out/check_$pid.txt)
-  if ! grep -q "^VIOLATION" $out/check_$pid.txt && [ "$tier" = quick ]; then
-    # the flagged harnesses may belong to the thorough tier only (larger bounds, slow ones)
-    (cd $V && VERIF_ONLY="$hits" python3 check.py $pid --tier thorough > $out/check_${pid}_thorough.txt 2>$out/check_${pid}_thorough.err; echo "exit=$? (tier thorough, restricted to the harnesses the native sweep flagged: $hits)" >> $out/check_${pid}_thorough.txt)
-    if grep -q "^VIOLATION" $out/check_${pid}_thorough.txt; then cp $out/check_${pid}_thorough.txt $out/check_$pid.txt; fi
-  fi
-fi
-if [ -z "$hits" ] || { ! grep -q "^VIOLATION" $out/check_$pid.txt && grep -q "no obligation was generated" $out/check_$pid.txt; }; then
-  (cd $V && python3 check.py $pid --tier $tier > $out/check_$pid.txt 2>$out/check_$pid.err; echo "exit=$? (tier $tier, full check; native sweep flagged nothing the restricted runs could decide)" >> $out/check_$pid.txt)
-fi
- if [ -n "$hits" ]; then
-  (cd $V && VERIF_ONLY="$hits" python3 check.py $pid --tier $tier > $out/check_$pid.txt 2>$out/check_$pid.err; echo "exit=$? (tier $tier, restricted to the harnesses the native sweep flagged: $hits)" >> $out/check_$pid.txt)
-  if ! grep -q "^VIOLATION" $out/check_$pid.txt && [ "$tier" = quick ]; then
-    # the flagged harnesses may belong to the thorough tier only (larger bounds, slow ones)
-    (cd $V && VERIF_ONLY="$hits" python3 check.py $pid --tier thorough > $out/check_${pid}_thorough.txt 2>$out/check_${pid}_thorough.err; echo "exit=$? (tier thorough, restricted to the harnesses the native sweep flagged: $hits)" >> $out/check_${pid}_thorough.txt)
-    if grep -q "^VIOLATION" $out/check_${pid}_thorough.txt; then cp $out/check_${pid}_thorough.txt $out/check_$pid.txt; fi
-  fi
-fi
-if [ -z "$hits" ] || { ! grep -q "^VIOLATION" $out/check_$pid.txt && grep -q "no obligation was generated" $out/check_$pid.txt; }; then
-  (cd $V && python3 check.py $pid --tier $tier > $out/check_$pid.txt 2>$out/check_$pid.err; echo "exit=$? (tier $tier, full check; native sweep flagged nothing the restricted runs could decide)" >> $out/check_$pid.txt)
-fi
-tif [ -n "$hits" ]; then
-  (cd $V && VERIF_ONLY="$hits" python3 check.py $pid --tier $tier > $out/check_$pid.txt 2>$out/check_$pid.err; echo "exit=$? (tier $tier, restricted to the harnesses the native sweep flagged: $hits)" >> $out/check_$pid.txt)
-  if ! grep -q "^VIOLATION" $out/check_$pid.txt && [ "$tier" = quick ]; then
-    # the flagged harnesses may belong to the thorough tier only (larger bounds, slow ones)
-    (cd $V && VERIF_ONLY="$hits" python3 check.py $pid --tier thorough > $out/check_${pid}_thorough.txt 2>$out/check_${pid}_thorough.err; echo "exit=$? (tier thorough, restricted to the harnesses the native sweep flagged: $hits)" >> $out/check_${pid}_thorough.txt)
-    if grep -q "^VIOLATION" $out/check_${pid}_thorough.txt; then cp $out/check_${pid}_thorough.txt $out/check_$pid.txt; fi
-  fi
-fi
-if [ -z "$hits" ] || { ! grep -q "^VIOLATION" $out/check_$pid.txt && grep -q "no obligation was generated" $out/check_$pid.txt; }; then
-  (cd $V && python3 check.py $pid --tier $tier > $out/check_$pid.txt 2>$out/check_$pid.err; echo "exit=$? (tier $tier, full check; native sweep flagged nothing the restricted runs could decide)" >> $out/check_$pid.txt)
-fi
-hif [ -n "$hits" ]; then
-  (cd $V && VERIF_ONLY="$hits" python3 check.py $pid --tier $tier > $out/check_$pid.txt 2>$out/check_$pid.err; echo "exit=$? (tier $tier, restricted to the harnesses the native sweep flagged: $hits)" >> $out/check_$pid.txt)
-  if ! grep -q "^VIOLATION" $out/check_$pid.txt && [ "$tier" = quick ]; then
-    # the flagged harnesses may belong to the thorough tier only (larger bounds, slow ones)
-    (cd $V && VERIF_ONLY="$hits" python3 check.py $pid --tier thorough > $out/check_${pid}_thorough.txt 2>$out/check_${pid}_thorough.err; echo "exit=$? (tier thorough, restricted to the harnesses the native sweep flagged: $hits)" >> $out/check_${pid}_thorough.txt)
-    if grep -q "^VIOLATION" $out/check_${pid}_thorough.txt; then cp $out/check_${pid}_thorough.txt $out/check_$pid.txt; fi
-  fi
-fi
-if [ -z "$hits" ] || { ! grep -q "^VIOLATION" $out/check_$pid.txt && grep -q "no obligation was generated" $out/check_$pid.txt; }; then
-  (cd $V && python3 check.py $pid --tier $tier > $out/check_$pid.txt 2>$out/check_$pid.err; echo "exit=$? (tier $tier, full check; native sweep flagged nothing the restricted runs could decide)" >> $out/check_$pid.txt)
-fi
-eif [ -n "$hits" ]; then
-  (cd $V && VERIF_ONLY="$hits" python3 check.py $pid --tier $tier > $out/check_$pid.txt 2>$out/check_$pid.err; echo "exit=$? (tier $tier, restricted to the harnesses the native sweep flagged: $hits)" >> $out/check_$pid.txt)
-  if ! grep -q "^VIOLATION" $out/check_$pid.txt && [ "$tier" = quick ]; then
-    # the flagged harnesses may belong to the thorough tier only (larger bounds, slow ones)
-    (cd $V && VERIF_ONLY="$hits" python3 check.py $pid --tier thorough > $out/check_${pid}_thorough.txt 2>$out/check_${pid}_thorough.err; echo "exit=$? (tier thorough, restricted to the harnesses the native sweep flagged: $hits)" >> $out/check_${pid}_thorough.txt)
-    if grep -q "^VIOLATION" $out/check_${pid}_thorough.txt; then cp $out/check_${pid}_thorough.txt $out/check_$pid.txt; fi
-  fi
-fi
-if [ -z "$hits" ] || { ! grep -q "^VIOLATION" $out/check_$pid.txt && grep -q "no obligation was generated" $out/check_$pid.txt; }; then
-  (cd $V && python3 check.py $pid --tier $tier > $out/check_$pid.txt 2>$out/check_$pid.err; echo "exit=$? (tier $tier, full check; native sweep flagged nothing the restricted runs could decide)" >> $out/check_$pid.txt)
-fi
-nif [ -n "$hits" ]; then
-  (cd $V && VERIF_ONLY="$hits" python3 check.py $pid --tier $tier > $out/check_$pid.txt 2>$out/check_$pid.err; echo "exit=$? (tier $tier, restricted to the harnesses the native sweep flagged: $hits)" >> $out/check_$pid.txt)
-  if ! grep -q "^VIOLATION" $out/check_$pid.txt && [ "$tier" = quick ]; then
-    # the flagged harnesses may belong to the thorough tier only (larger bounds, slow ones)
-    (cd $V && VERIF_ONLY="$hits" python3 check.py $pid --tier thorough > $out/check_${pid}_thorough.txt 2>$out/check_${pid}_thorough.err; echo "exit=$? (tier thorough, restricted to the harnesses the native sweep flagged: $hits)" >> $out/check_${pid}_thorough.txt)
-    if grep -q "^VIOLATION" $out/check_${pid}_thorough.txt; then cp $out/check_${pid}_thorough.txt $out/check_$pid.txt; fi
-  fi
-fi
-if [ -z "$hits" ] || { ! grep -q "^VIOLATION" $out/check_$pid.txt && grep -q "no obligation was generated" $out/check_$pid.txt; }; then
-  (cd $V && python3 check.py $pid --tier $tier > $out/check_$pid.txt 2>$out/check_$pid.err; echo "exit=$? (tier $tier, full check; native sweep flagged nothing the restricted runs could decide)" >> $out/check_$pid.txt)
-fi
-
-if [ -n "$hits" ]; then
-  (cd $V && VERIF_ONLY="$hits" python3 check.py $pid --tier $tier > $out/check_$pid.txt 2>$out/check_$pid.err; echo "exit=$? (tier $tier, restricted to the harnesses the native sweep flagged: $hits)" >> $out/check_$pid.txt)
-  if ! grep -q "^VIOLATION" $out/check_$pid.txt && [ "$tier" = quick ]; then
-    # the flagged harnesses may belong to the thorough tier only (larger bounds, slow ones)
-    (cd $V && VERIF_ONLY="$hits" python3 check.py $pid --tier thorough > $out/check_${pid}_thorough.txt 2>$out/check_${pid}_thorough.err; echo "exit=$? (tier thorough, restricted to the harnesses the native sweep flagged: $hits)" >> $out/check_${pid}_thorough.txt)
-    if grep -q "^VIOLATION" $out/check_${pid}_thorough.txt; then cp $out/check_${pid}_thorough.txt $out/check_$pid.txt; fi
-  fi
-fi
-if [ -z "$hits" ] || { ! grep -q "^VIOLATION" $out/check_$pid.txt && grep -q "no obligation was generated" $out/check_$pid.txt; }; then
-  (cd $V && python3 check.py $pid --tier $tier > $out/check_$pid.txt 2>$out/check_$pid.err; echo "exit=$? (tier $tier, full check; native sweep flagged nothing the restricted runs could decide)" >> $out/check_$pid.txt)
-fi
- if [ -n "$hits" ]; then
-  (cd $V && VERIF_ONLY="$hits" python3 check.py $pid --tier $tier > $out/check_$pid.txt 2>$out/check_$pid.err; echo "exit=$? (tier $tier, restricted to the harnesses the native sweep flagged: $hits)" >> $out/check_$pid.txt)
-  if ! grep -q "^VIOLATION" $out/check_$pid.txt && [ "$tier" = quick ]; then
-    # the flagged harnesses may belong to the thorough tier only (larger bounds, slow ones)
-    (cd $V && VERIF_ONLY="$hits" python3 check.py $pid --tier thorough > $out/check_${pid}_thorough.txt 2>$out/check_${pid}_thorough.err; echo "exit=$? (tier thorough, restricted to the harnesses the native sweep flagged: $hits)" >> $out/check_${pid}_thorough.txt)
-    if grep -q "^VIOLATION" $out/check_${pid}_thorough.txt; then cp $out/check_${pid}_thorough.txt $out/check_$pid.txt; fi
-  fi
-fi
-if [ -z "$hits" ] || { ! grep -q "^VIOLATION" $out/check_$pid.txt && grep -q "no obligation was generated" $out/check_$pid.txt; }; then
-  (cd $V && python3 check.py $pid --tier $tier > $out/check_$pid.txt 2>$out/check_$pid.err; echo "exit=$? (tier $tier, full check; native sweep flagged nothing the restricted runs could decide)" >> $out/check_$pid.txt)
-fi
- if [ -n "$hits" ]; then
-  (cd $V && VERIF_ONLY="$hits" python3 check.py $pid --tier $tier > $out/check_$pid.txt 2>$out/check_$pid.err; echo "exit=$? (tier $tier, restricted to the harnesses the native sweep flagged: $hits)" >> $out/check_$pid.txt)
-  if ! grep -q "^VIOLATION" $out/check_$pid.txt && [ "$tier" = quick ]; then
-    # the flagged harnesses may belong to the thorough tier only (larger bounds, slow ones)
-    (cd $V && VERIF_ONLY="$hits" python3 check.py $pid --tier thorough > $out/check_${pid}_thorough.txt 2>$out/check_${pid}_thorough.err; echo "exit=$? (tier thorough, restricted to the harnesses the native sweep flagged: $hits)" >> $out/check_${pid}_thorough.txt)
-    if grep -q "^VIOLATION" $out/check_${pid}_thorough.txt; then cp $out/check_${pid}_thorough.txt $out/check_$pid.txt; fi
-  fi
-fi
-if [ -z "$hits" ] || { ! grep -q "^VIOLATION" $out/check_$pid.txt && grep -q "no obligation was generated" $out/check_$pid.txt; }; then
-  (cd $V && python3 check.py $pid --tier $tier > $out/check_$pid.txt 2>$out/check_$pid.err; echo "exit=$? (tier $tier, full check; native sweep flagged nothing the restricted runs could decide)" >> $out/check_$pid.txt)
-fi
-(if [ -n "$hits" ]; then
-  (cd $V && VERIF_ONLY="$hits" python3 check.py $pid --tier $tier > $out/check_$pid.txt 2>$out/check_$pid.err; echo "exit=$? (tier $tier, restricted to the harnesses the native sweep flagged: $hits)" >> $out/check_$pid.txt)
-  if ! grep -q "^VIOLATION" $out/check_$pid.txt && [ "$tier" = quick ]; then
-    # the flagged harnesses may belong to the thorough tier only (larger bounds, slow ones)
-    (cd $V && VERIF_ONLY="$hits" python3 check.py $pid --tier thorough > $out/check_${pid}_thorough.txt 2>$out/check_${pid}_thorough.err; echo "exit=$? (tier thorough, restricted to the harnesses the native sweep flagged: $hits)" >> $out/check_${pid}_thorough.txt)
-    if grep -q "^VIOLATION" $out/check_${pid}_thorough.txt; then cp $out/check_${pid}_thorough.txt $out/check_$pid.txt; fi
-  fi
-fi
-if [ -z "$hits" ] || { ! grep -q "^VIOLATION" $out/check_$pid.txt && grep -q "no obligation was generated" $out/check_$pid.txt; }; then
-  (cd $V && python3 check.py $pid --tier $tier > $out/check_$pid.txt 2>$out/check_$pid.err; echo "exit=$? (tier $tier, full check; native sweep flagged nothing the restricted runs could decide)" >> $out/check_$pid.txt)
-fi
-cif [ -n "$hits" ]; then
-  (cd $V && VERIF_ONLY="$hits" python3 check.py $pid --tier $tier > $out/check_$pid.txt 2>$out/check_$pid.err; echo "exit=$? (tier $tier, restricted to the harnesses the native sweep flagged: $hits)" >> $out/check_$pid.txt)
-  if ! grep -q "^VIOLATION" $out/check_$pid.txt && [ "$tier" = quick ]; then
-    # the flagged harnesses may belong to the thorough tier only (larger bounds, slow ones)
-    (cd $V && VERIF_ONLY="$hits" python3 check.py $pid --tier thorough > $out/check_${pid}_thorough.txt 2>$out/check_${pid}_thorough.err; echo "exit=$? (tier thorough, restricted to the harnesses the native sweep flagged: $hits)" >> $out/check_${pid}_thorough.txt)
-    if grep -q "^VIOLATION" $out/check_${pid}_thorough.txt; then cp $out/check_${pid}_thorough.txt $out/check_$pid.txt; fi
-  fi
-fi
-if [ -z "$hits" ] || { ! grep -q "^VIOLATION" $out/check_$pid.txt && grep -q "no obligation was generated" $out/check_$pid.txt; }; then
-  (cd $V && python3 check.py $pid --tier $tier > $out/check_$pid.txt 2>$out/check_$pid.err; echo "exit=$? (tier $tier, full check; native sweep flagged nothing the restricted runs could decide)" >> $out/check_$pid.txt)
-fi
-dif [ -n "$hits" ]; then
-  (cd $V && VERIF_ONLY="$hits" python3 check.py $pid --tier $tier > $out/check_$pid.txt 2>$out/check_$pid.err; echo "exit=$? (tier $tier, restricted to the harnesses the native sweep flagged: $hits)" >> $out/check_$pid.txt)
-  if ! grep -q "^VIOLATION" $out/check_$pid.txt && [ "$tier" = quick ]; then
-    # the flagged harnesses may belong to the thorough tier only (larger bounds, slow ones)
-    (cd $V && VERIF_ONLY="$hits" python3 check.py $pid --tier thorough > $out/check_${pid}_thorough.txt 2>$out/check_${pid}_thorough.err; echo "exit=$? (tier thorough, restricted to the harnesses the native sweep flagged: $hits)" >> $out/check_${pid}_thorough.txt)
-    if grep -q "^VIOLATION" $out/check_${pid}_thorough.txt; then cp $out/check_${pid}_thorough.txt $out/check_$pid.txt; fi
-  fi
-fi
-if [ -z "$hits" ] || { ! grep -q "^VIOLATION" $out/check_$pid.txt && grep -q "no obligation was generated" $out/check_$pid.txt; }; then
-  (cd $V && python3 check.py $pid --tier $tier > $out/check_$pid.txt 2>$out/check_$pid.err; echo "exit=$? (tier $tier, full check; native sweep flagged nothing the restricted runs could decide)" >> $out/check_$pid.txt)
-fi
- if [ -n "$hits" ]; then
-  (cd $V && VERIF_ONLY="$hits" python3 check.py $pid --tier $tier > $out/check_$pid.txt 2>$out/check_$pid.err; echo "exit=$? (tier $tier, restricted to the harnesses the native sweep flagged: $hits)" >> $out/check_$pid.txt)
-  if ! grep -q "^VIOLATION" $out/check_$pid.txt && [ "$tier" = quick ]; then
-    # the flagged harnesses may belong to the thorough tier only (larger bounds, slow ones)
-    (cd $V && VERIF_ONLY="$hits" python3 check.py $pid --tier thorough > $out/check_${pid}_thorough.txt 2>$out/check_${pid}_thorough.err; echo "exit=$? (tier thorough, restricted to the harnesses the native sweep flagged: $hits)" >> $out/check_${pid}_thorough.txt)
-    if grep -q "^VIOLATION" $out/check_${pid}_thorough.txt; then cp $out/check_${pid}_thorough.txt $out/check_$pid.txt; fi
-  fi
-fi
-if [ -z "$hits" ] || { ! grep -q "^VIOLATION" $out/check_$pid.txt && grep -q "no obligation was generated" $out/check_$pid.txt; }; then
-  (cd $V && python3 check.py $pid --tier $tier > $out/check_$pid.txt 2>$out/check_$pid.err; echo "exit=$? (tier $tier, full check; native sweep flagged nothing the restricted runs could decide)" >> $out/check_$pid.txt)
-fi
-$if [ -n "$hits" ]; then
-  (cd $V && VERIF_ONLY="$hits" python3 check.py $pid --tier $tier > $out/check_$pid.txt 2>$out/check_$pid.err; echo "exit=$? (tier $tier, restricted to the harnesses the native sweep flagged: $hits)" >> $out/check_$pid.txt)
-  if ! grep -q "^VIOLATION" $out/check_$pid.txt && [ "$tier" = quick ]; then
-    # the flagged harnesses may belong to the thorough tier only (larger bounds, slow ones)
-    (cd $V && VERIF_ONLY="$hits" python3 check.py $pid --tier thorough > $out/check_${pid}_thorough.txt 2>$out/check_${pid}_thorough.err; echo "exit=$? (tier thorough, restricted to the harnesses the native sweep flagged: $hits)" >> $out/check_${pid}_thorough.txt)
-    if grep -q "^VIOLATION" $out/check_${pid}_thorough.txt; then cp $out/check_${pid}_thorough.txt $out/check_$pid.txt; fi
-  fi
-fi
-if [ -z "$hits" ] || { ! grep -q "^VIOLATION" $out/check_$pid.txt && grep -q "no obligation was generated" $out/check_$pid.txt; }; then
-  (cd $V && python3 check.py $pid --tier $tier > $out/check_$pid.txt 2>$out/check_$pid.err; echo "exit=$? (tier $tier, full check; native sweep flagged nothing the restricted runs could decide)" >> $out/check_$pid.txt)
-fi
-Vif [ -n "$hits" ]; then
-  (cd $V && VERIF_ONLY="$hits" python3 check.py $pid --tier $tier > $out/check_$pid.txt 2>$out/check_$pid.err; echo "exit=$? (tier $tier, restricted to the harnesses the native sweep flagged: $hits)" >> $out/check_$pid.txt)
-  if ! grep -q "^VIOLATION" $out/check_$pid.txt && [ "$tier" = quick ]; then
-    # the flagged harnesses may belong to the thorough tier only (larger bounds, slow ones)
-    (cd $V && VERIF_ONLY="$hits" python3 check.py $pid --tier thorough > $out/check_${pid}_thorough.txt 2>$out/check_${pid}_thorough.err; echo "exit=$? (tier thorough, restricted to the harnesses the native sweep flagged: $hits)" >> $out/check_${pid}_thorough.txt)
-    if grep -q "^VIOLATION" $out/check_${pid}_thorough.txt; then cp $out/check_${pid}_thorough.txt $out/check_$pid.txt; fi
-  fi
-fi
-if [ -z "$hits" ] || { ! grep -q "^VIOLATION" $out/check_$pid.txt && grep -q "no obligation was generated" $out/check_$pid.txt; }; then
-  (cd $V && python3 check.py $pid --tier $tier > $out/check_$pid.txt 2>$out/check_$pid.err; echo "exit=$? (tier $tier, full check; native sweep flagged nothing the restricted runs could decide)" >> $out/check_$pid.txt)
-fi
- if [ -n "$hits" ]; then
-  (cd $V && VERIF_ONLY="$hits" python3 check.py $pid --tier $tier > $out/check_$pid.txt 2>$out/check_$pid.err; echo "exit=$? (tier $tier, restricted to the harnesses the native sweep flagged: $hits)" >> $out/check_$pid.txt)
-  if ! grep -q "^VIOLATION" $out/check_$pid.txt && [ "$tier" = quick ]; then
-    # the flagged harnesses may belong to the thorough tier only (larger bounds, slow ones)
-    (cd $V && VERIF_ONLY="$hits" python3 check.py $pid --tier thorough > $out/check_${pid}_thorough.txt 2>$out/check_${pid}_thorough.err; echo "exit=$? (tier thorough, restricted to the harnesses the native sweep flagged: $hits)" >> $out/check_${pid}_thorough.txt)
-    if grep -q "^VIOLATION" $out/check_${pid}_thorough.txt; then cp $out/check_${pid}_thorough.txt $out/check_$pid.txt; fi
-  fi
-fi
-if [ -z "$hits" ] || { ! grep -q "^VIOLATION" $out/check_$pid.txt && grep -q "no obligation was generated" $out/check_$pid.txt; }; then
-  (cd $V && python3 check.py $pid --tier $tier > $out/check_$pid.txt 2>$out/check_$pid.err; echo "exit=$? (tier $tier, full check; native sweep flagged nothing the restricted runs could decide)" >> $out/check_$pid.txt)
-fi
-&if [ -n "$hits" ]; then
-  (cd $V && VERIF_ONLY="$hits" python3 check.py $pid --tier $tier > $out/check_$pid.txt 2>$out/check_$pid.err; echo "exit=$? (tier $tier, restricted to the harnesses the native sweep flagged: $hits)" >> $out/check_$pid.txt)
-  if ! grep -q "^VIOLATION" $out/check_$pid.txt && [ "$tier" = quick ]; then
-    # the flagged harnesses may belong to the thorough tier only (larger bounds, slow ones)
-    (cd $V && VERIF_ONLY="$hits" python3 check.py $pid --tier thorough > $out/check_${pid}_thorough.txt 2>$out/check_${pid}_thorough.err; echo "exit=$? (tier thorough, restricted to the harnesses the native sweep flagged: $hits)" >> $out/check_${pid}_thorough.txt)
-    if grep -q "^VIOLATION" $out/check_${pid}_thorough.txt; then cp $out/check_${pid}_thorough.txt $out/check_$pid.txt; fi
-  fi
-fi
-if [ -z "$hits" ] || { ! grep -q "^VIOLATION" $out/check_$pid.txt && grep -q "no obligation was generated" $out/check_$pid.txt; }; then
-  (cd $V && python3 check.py $pid --tier $tier > $out/check_$pid.txt 2>$out/check_$pid.err; echo "exit=$? (tier $tier, full check; native sweep flagged nothing the restricted runs could decide)" >> $out/check_$pid.txt)
-fi
-&if [ -n "$hits" ]; then
-  (cd $V && VERIF_ONLY="$hits" python3 check.py $pid --tier $tier > $out/check_$pid.txt 2>$out/check_$pid.err; echo "exit=$? (tier $tier, restricted to the harnesses the native sweep flagged: $hits)" >> $out/check_$pid.txt)
-  if ! grep -q "^VIOLATION" $out/check_$pid.txt && [ "$tier" = quick ]; then
-    # the flagged harnesses may belong to the thorough tier only (larger bounds, slow ones)
-    (cd $V && VERIF_ONLY="$hits" python3 check.py $pid --tier thorough > $out/check_${pid}_thorough.txt 2>$out/check_${pid}_thorough.err; echo "exit=$? (tier thorough, restricted to the harnesses the native sweep flagged: $hits)" >> $out/check_${pid}_thorough.txt)
-    if grep -q "^VIOLATION" $out/check_${pid}_thorough.txt; then cp $out/check_${pid}_thorough.txt $out/check_$pid.txt; fi
-  fi
-fi
-if [ -z "$hits" ] || { ! grep -q "^VIOLATION" $out/check_$pid.txt && grep -q "no obligation was generated" $out/check_$pid.txt; }; then
-  (cd $V && python3 check.py $pid --tier $tier > $out/check_$pid.txt 2>$out/check_$pid.err; echo "exit=$? (tier $tier, full check; native sweep flagged nothing the restricted runs could decide)" >> $out/check_$pid.txt)
-fi
- if [ -n "$hits" ]; then
-  (cd $V && VERIF_ONLY="$hits" python3 check.py $pid --tier $tier > $out/check_$pid.txt 2>$out/check_$pid.err; echo "exit=$? (tier $tier, restricted to the harnesses the native sweep flagged: $hits)" >> $out/check_$pid.txt)
-  if ! grep -q "^VIOLATION" $out/check_$pid.txt && [ "$tier" = quick ]; then
-    # the flagged harnesses may belong to the thorough tier only (larger bounds, slow ones)
-    (cd $V && VERIF_ONLY="$hits" python3 check.py $pid --tier thorough > $out/check_${pid}_thorough.txt 2>$out/check_${pid}_thorough.err; echo "exit=$? (tier thorough, restricted to the harnesses the native sweep flagged: $hits)" >> $out/check_${pid}_thorough.txt)
-    if grep -q "^VIOLATION" $out/check_${pid}_thorough.txt; then cp $out/check_${pid}_thorough.txt $out/check_$pid.txt; fi
-  fi
-fi
-if [ -z "$hits" ] || { ! grep -q "^VIOLATION" $out/check_$pid.txt && grep -q "no obligation was generated" $out/check_$pid.txt; }; then
-  (cd $V && python3 check.py $pid --tier $tier > $out/check_$pid.txt 2>$out/check_$pid.err; echo "exit=$? (tier $tier, full check; native sweep flagged nothing the restricted runs could decide)" >> $out/check_$pid.txt)
-fi
-Vif [ -n "$hits" ]; then
-  (cd $V && VERIF_ONLY="$hits" python3 check.py $pid --tier $tier > $out/check_$pid.txt 2>$out/check_$pid.err; echo "exit=$? (tier $tier, restricted to the harnesses the native sweep flagged: $hits)" >> $out/check_$pid.txt)
-  if ! grep -q "^VIOLATION" $out/check_$pid.txt && [ "$tier" = quick ]; then
-    # the flagged harnesses may belong to the thorough tier only (larger bounds, slow ones)
-    (cd $V && VERIF_ONLY="$hits" python3 check.py $pid --tier thorough > $out/check_${pid}_thorough.txt 2>$out/check_${pid}_thorough.err; echo "exit=$? (tier thorough, restricted to the harnesses the native sweep flagged: $hits)" >> $out/check_${pid}_thorough.txt)
-    if grep -q "^VIOLATION" $out/check_${pid}_thorough.txt; then cp $out/check_${pid}_thorough.txt $out/check_$pid.txt; fi
-  fi
-fi
-if [ -z "$hits" ] || { ! grep -q "^VIOLATION" $out/check_$pid.txt && grep -q "no obligation was generated" $out/check_$pid.txt; }; then
-  (cd $V && python3 check.py $pid --tier $tier > $out/check_$pid.txt 2>$out/check_$pid.err; echo "exit=$? (tier $tier, full check; native sweep flagged nothing the restricted runs could decide)" >> $out/check_$pid.txt)
-fi
-Eif [ -n "$hits" ]; then
-  (cd $V && VERIF_ONLY="$hits" python3 check.py $pid --tier $tier > $out/check_$pid.txt 2>$out/check_$pid.err; echo "exit=$? (tier $tier, restricted to the harnesses the native sweep flagged: $hits)" >> $out/check_$pid.txt)
-  if ! grep -q "^VIOLATION" $out/check_$pid.txt && [ "$tier" = quick ]; then
-    # the flagged harnesses may belong to the thorough tier only (larger bounds, slow ones)
-    (cd $V && VERIF_ONLY="$hits" python3 check.py $pid --tier thorough > $out/check_${pid}_thorough.txt 2>$out/check_${pid}_thorough.err; echo "exit=$? (tier thorough, restricted to the harnesses the native sweep flagged: $hits)" >> $out/check_${pid}_thorough.txt)
-    if grep -q "^VIOLATION" $out/check_${pid}_thorough.txt; then cp $out/check_${pid}_thorough.txt $out/check_$pid.txt; fi
-  fi
-fi
-if [ -z "$hits" ] || { ! grep -q "^VIOLATION" $out/check_$pid.txt && grep -q "no obligation was generated" $out/check_$pid.txt; }; then
-  (cd $V && python3 check.py $pid --tier $tier > $out/check_$pid.txt 2>$out/check_$pid.err; echo "exit=$? (tier $tier, full check; native sweep flagged nothing the restricted runs could decide)" >> $out/check_$pid.txt)
-fi
-Rif [ -n "$hits" ]; then
-  (cd $V && VERIF_ONLY="$hits" python3 check.py $pid --tier $tier > $out/check_$pid.txt 2>$out/check_$pid.err; echo "exit=$? (tier $tier, restricted to the harnesses the native sweep flagged: $hits)" >> $out/check_$pid.txt)
-  if ! grep -q "^VIOLATION" $out/check_$pid.txt && [ "$tier" = quick ]; then
-    # the flagged harnesses may belong to the thorough tier only (larger bounds, slow ones)
-    (cd $V && VERIF_ONLY="$hits" python3 check.py $pid --tier thorough > $out/check_${pid}_thorough.txt 2>$out/check_${pid}_thorough.err; echo "exit=$? (tier thorough, restricted to the harnesses the native sweep flagged: $hits)" >> $out/check_${pid}_thorough.txt)
-    if grep -q "^VIOLATION" $out/check_${pid}_thorough.txt; then cp $out/check_${pid}_thorough.txt $out/check_$pid.txt; fi
-  fi
-fi
-if [ -z "$hits" ] || { ! grep -q "^VIOLATION" $out/check_$pid.txt && grep -q "no obligation was generated" $out/check_$pid.txt; }; then
-  (cd $V && python3 check.py $pid --tier $tier > $out/check_$pid.txt 2>$out/check_$pid.err; echo "exit=$? (tier $tier, full check; native sweep flagged nothing the restricted runs could decide)" >> $out/check_$pid.txt)
-fi
-Iif [ -n "$hits" ]; then
-  (cd $V && VERIF_ONLY="$hits" python3 check.py $pid --tier $tier > $out/check_$pid.txt 2>$out/check_$pid.err; echo "exit=$? (tier $tier, restricted to the harnesses the native sweep flagged: $hits)" >> $out/check_$pid.txt)
-  if ! grep -q "^VIOLATION" $out/check_$pid.txt && [ "$tier" = quick ]; then
-    # the flagged harnesses may belong to the thorough tier only (larger bounds, slow ones)
-    (cd $V && VERIF_ONLY="$hits" python3 check.py $pid --tier thorough > $out/check_${pid}_thorough.txt 2>$out/check_${pid}_thorough.err; echo "exit=$? (tier thorough, restricted to the harnesses the native sweep flagged: $hits)" >> $out/check_${pid}_thorough.txt)
-    if grep -q "^VIOLATION" $out/check_${pid}_thorough.txt; then cp $out/check_${pid}_thorough.txt $out/check_$pid.txt; fi
-  fi
-fi
-if [ -z "$hits" ] || { ! grep -q "^VIOLATION" $out/check_$pid.txt && grep -q "no obligation was generated" $out/check_$pid.txt; }; then
-  (cd $V && python3 check.py $pid --tier $tier > $out/check_$pid.txt 2>$out/check_$pid.err; echo "exit=$? (tier $tier, full check; native sweep flagged nothing the restricted runs could decide)" >> $out/check_$pid.txt)
-fi
-Fif [ -n "$hits" ]; then
-  (cd $V && VERIF_ONLY="$hits" python3 check.py $pid --tier $tier > $out/check_$pid.txt 2>$out/check_$pid.err; echo "exit=$? (tier $tier, restricted to the harnesses the native sweep flagged: $hits)" >> $out/check_$pid.txt)
-  if ! grep -q "^VIOLATION" $out/check_$pid.txt && [ "$tier" = quick ]; then
-    # the flagged harnesses may belong to the thorough tier only (larger bounds, slow ones)
-    (cd $V && VERIF_ONLY="$hits" python3 check.py $pid --tier thorough > $out/check_${pid}_thorough.txt 2>$out/check_${pid}_thorough.err; echo "exit=$? (tier thorough, restricted to the harnesses the native sweep flagged: $hits)" >> $out/check_${pid}_thorough.txt)
-    if grep -q "^VIOLATION" $out/check_${pid}_thorough.txt; then cp $out/check_${pid}_thorough.txt $out/check_$pid.txt; fi
-  fi
-fi
-if [ -z "$hits" ] || { ! grep -q "^VIOLATION" $out/check_$pid.txt && grep -q "no obligation was generated" $out/check_$pid.txt; }; then
-  (cd $V && python3 check.py $pid --tier $tier > $out/check_$pid.txt 2>$out/check_$pid.err; echo "exit=$? (tier $tier, full check; native sweep flagged nothing the restricted runs could decide)" >> $out/check_$pid.txt)
-fi
-_if [ -n "$hits" ]; then
-  (cd $V && VERIF_ONLY="$hits" python3 check.py $pid --tier $tier > $out/check_$pid.txt 2>$out/check_$pid.err; echo "exit=$? (tier $tier, restricted to the harnesses the native sweep flagged: $hits)" >> $out/check_$pid.txt)
-  if ! grep -q "^VIOLATION" $out/check_$pid.txt && [ "$tier" = quick ]; then
-    # the flagged harnesses may belong to the thorough tier only (larger bounds, slow ones)
-    (cd $V && VERIF_ONLY="$hits" python3 check.py $pid --tier thorough > $out/check_${pid}_thorough.txt 2>$out/check_${pid}_thorough.err; echo "exit=$? (tier thorough, restricted to the harnesses the native sweep flagged: $hits)" >> $out/check_${pid}_thorough.txt)
-    if grep -q "^VIOLATION" $out/check_${pid}_thorough.txt; then cp $out/check_${pid}_thorough.txt $out/check_$pid.txt; fi
-  fi
-fi
-if [ -z "$hits" ] || { ! grep -q "^VIOLATION" $out/check_$pid.txt && grep -q "no obligation was generated" $out/check_$pid.txt; }; then
-  (cd $V && python3 check.py $pid --tier $tier > $out/check_$pid.txt 2>$out/check_$pid.err; echo "exit=$? (tier $tier, full check; native sweep flagged nothing the restricted runs could decide)" >> $out/check_$pid.txt)
-fi
-Oif [ -n "$hits" ]; then
-  (cd $V && VERIF_ONLY="$hits" python3 check.py $pid --tier $tier > $out/check_$pid.txt 2>$out/check_$pid.err; echo "exit=$? (tier $tier, restricted to the harnesses the native sweep flagged: $hits)" >> $out/check_$pid.txt)
-  if ! grep -q "^VIOLATION" $out/check_$pid.txt && [ "$tier" = quick ]; then
-    # the flagged harnesses may belong to the thorough tier only (larger bounds, slow ones)
-    (cd $V && VERIF_ONLY="$hits" python3 check.py $pid --tier thorough > $out/check_${pid}_thorough.txt 2>$out/check_${pid}_thorough.err; echo "exit=$? (tier thorough, restricted to the harnesses the native sweep flagged: $hits)" >> $out/check_${pid}_thorough.txt)
-    if grep -q "^VIOLATION" $out/check_${pid}_thorough.txt; then cp $out/check_${pid}_thorough.txt $out/check_$pid.txt; fi
-  fi
-fi
-if [ -z "$hits" ] || { ! grep -q "^VIOLATION" $out/check_$pid.txt && grep -q "no obligation was generated" $out/check_$pid.txt; }; then
-  (cd $V && python3 check.py $pid --tier $tier > $out/check_$pid.txt 2>$out/check_$pid.err; echo "exit=$? (tier $tier, full check; native sweep flagged nothing the restricted runs could decide)" >> $out/check_$pid.txt)
-fi
-Nif [ -n "$hits" ]; then
-  (cd $V && VERIF_ONLY="$hits" python3 check.py $pid --tier $tier > $out/check_$pid.txt 2>$out/check_$pid.err; echo "exit=$? (tier $tier, restricted to the harnesses the native sweep flagged: $hits)" >> $out/check_$pid.txt)
-  if ! grep -q "^VIOLATION" $out/check_$pid.txt && [ "$tier" = quick ]; then
-    # the flagged harnesses may belong to the thorough tier only (larger bounds, slow ones)
-    (cd $V && VERIF_ONLY="$hits" python3 check.py $pid --tier thorough > $out/check_${pid}_thorough.txt 2>$out/check_${pid}_thorough.err; echo "exit=$? (tier thorough, restricted to the harnesses the native sweep flagged: $hits)" >> $out/check_${pid}_thorough.txt)
-    if grep -q "^VIOLATION" $out/check_${pid}_thorough.txt; then cp $out/check_${pid}_thorough.txt $out/check_$pid.txt; fi
-  fi
-fi
-if [ -z "$hits" ] || { ! grep -q "^VIOLATION" $out/check_$pid.txt && grep -q "no obligation was generated" $out/check_$pid.txt; }; then
-  (cd $V && python3 check.py $pid --tier $tier > $out/check_$pid.txt 2>$out/check_$pid.err; echo "exit=$? (tier $tier, full check; native sweep flagged nothing the restricted runs could decide)" >> $out/check_$pid.txt)
-fi
-Lif [ -n "$hits" ]; then
-  (cd $V && VERIF_ONLY="$hits" python3 check.py $pid --tier $tier > $out/check_$pid.txt 2>$out/check_$pid.err; echo "exit=$? (tier $tier, restricted to the harnesses the native sweep flagged: $hits)" >> $out/check_$pid.txt)
-  if ! grep -q "^VIOLATION" $out/check_$pid.txt && [ "$tier" = quick ]; then
-    # the flagged harnesses may belong to the thorough tier only (larger bounds, slow ones)
-    (cd $V && VERIF_ONLY="$hits" python3 check.py $pid --tier thorough > $out/check_${pid}_thorough.txt 2>$out/check_${pid}_thorough.err; echo "exit=$? (tier thorough, restricted to the harnesses the native sweep flagged: $hits)" >> $out/check_${pid}_thorough.txt)
-    if grep -q "^VIOLATION" $out/check_${pid}_thorough.txt; then cp $out/check_${pid}_thorough.txt $out/check_$pid.txt; fi
-  fi
-fi
-if [ -z "$hits" ] || { ! grep -q "^VIOLATION" $out/check_$pid.txt && grep -q "no obligation was generated" $out/check_$pid.txt; }; then
-  (cd $V && python3 check.py $pid --tier $tier > $out/check_$pid.txt 2>$out/check_$pid.err; echo "exit=$? (tier $tier, full check; native sweep flagged nothing the restricted runs could decide)" >> $out/check_$pid.txt)
-fi
-Yif [ -n "$hits" ]; then
-  (cd $V && VERIF_ONLY="$hits" python3 check.py $pid --tier $tier > $out/check_$pid.txt 2>$out/check_$pid.err; echo "exit=$? (tier $tier, restricted to the harnesses the native sweep flagged: $hits)" >> $out/check_$pid.txt)
-  if ! grep -q "^VIOLATION" $out/check_$pid.txt && [ "$tier" = quick ]; then
-    # the flagged harnesses may belong to the thorough tier only (larger bounds, slow ones)
-    (cd $V && VERIF_ONLY="$hits" python3 check.py $pid --tier thorough > $out/check_${pid}_thorough.txt 2>$out/check_${pid}_thorough.err; echo "exit=$? (tier thorough, restricted to the harnesses the native sweep flagged: $hits)" >> $out/check_${pid}_thorough.txt)
-    if grep -q "^VIOLATION" $out/check_${pid}_thorough.txt; then cp $out/check_${pid}_thorough.txt $out/check_$pid.txt; fi
-  fi
-fi
-if [ -z "$hits" ] || { ! grep -q "^VIOLATION" $out/check_$pid.txt && grep -q "no obligation was generated" $out/check_$pid.txt; }; then
-  (cd $V && python3 check.py $pid --tier $tier > $out/check_$pid.txt 2>$out/check_$pid.err; echo "exit=$? (tier $tier, full check; native sweep flagged nothing the restricted runs could decide)" >> $out/check_$pid.txt)
-fi
-=if [ -n "$hits" ]; then
-  (cd $V && VERIF_ONLY="$hits" python3 check.py $pid --tier $tier > $out/check_$pid.txt 2>$out/check_$pid.err; echo "exit=$? (tier $tier, restricted to the harnesses the native sweep flagged: $hits)" >> $out/check_$pid.txt)
-  if ! grep -q "^VIOLATION" $out/check_$pid.txt && [ "$tier" = quick ]; then
-    # the flagged harnesses may belong to the thorough tier only (larger bounds, slow ones)
-    (cd $V && VERIF_ONLY="$hits" python3 check.py $pid --tier thorough > $out/check_${pid}_thorough.txt 2>$out/check_${pid}_thorough.err; echo "exit=$? (tier thorough, restricted to the harnesses the native sweep flagged: $hits)" >> $out/check_${pid}_thorough.txt)
-    if grep -q "^VIOLATION" $out/check_${pid}_thorough.txt; then cp $out/check_${pid}_thorough.txt $out/check_$pid.txt; fi
-  fi
-fi
-if [ -z "$hits" ] || { ! grep -q "^VIOLATION" $out/check_$pid.txt && grep -q "no obligation was generated" $out/check_$pid.txt; }; then
-  (cd $V && python3 check.py $pid --tier $tier > $out/check_$pid.txt 2>$out/check_$pid.err; echo "exit=$? (tier $tier, full check; native sweep flagged nothing the restricted runs could decide)" >> $out/check_$pid.txt)
-fi
-"if [ -n "$hits" ]; then
-  (cd $V && VERIF_ONLY="$hits" python3 check.py $pid --tier $tier > $out/check_$pid.txt 2>$out/check_$pid.err; echo "exit=$? (tier $tier, restricted to the harnesses the native sweep flagged: $hits)" >> $out/check_$pid.txt)
-  if ! grep -q "^VIOLATION" $out/check_$pid.txt && [ "$tier" = quick ]; then
-    # the flagged harnesses may belong to the thorough tier only (larger bounds, slow ones)
-    (cd $V && VERIF_ONLY="$hits" python3 check.py $pid --tier thorough > $out/check_${pid}_thorough.txt 2>$out/check_${pid}_thorough.err; echo "exit=$? (tier thorough, restricted to the harnesses the native sweep flagged: $hits)" >> $out/check_${pid}_thorough.txt)
-    if grep -q "^VIOLATION" $out/check_${pid}_thorough.txt; then cp $out/check_${pid}_thorough.txt $out/check_$pid.txt; fi
-  fi
-fi
-if [ -z "$hits" ] || { ! grep -q "^VIOLATION" $out/check_$pid.txt && grep -q "no obligation was generated" $out/check_$pid.txt; }; then
-  (cd $V && python3 check.py $pid --tier $tier > $out/check_$pid.txt 2>$out/check_$pid.err; echo "exit=$? (tier $tier, full check; native sweep flagged nothing the restricted runs could decide)" >> $out/check_$pid.txt)
-fi
-$if [ -n "$hits" ]; then
-  (cd $V && VERIF_ONLY="$hits" python3 check.py $pid --tier $tier > $out/check_$pid.txt 2>$out/check_$pid.err; echo "exit=$? (tier $tier, restricted to the harnesses the native sweep flagged: $hits)" >> $out/check_$pid.txt)
-  if ! grep -q "^VIOLATION" $out/check_$pid.txt && [ "$tier" = quick ]; then
-    # the flagged harnesses may belong to the thorough tier only (larger bounds, slow ones)
-    (cd $V && VERIF_ONLY="$hits" python3 check.py $pid --tier thorough > $out/check_${pid}_thorough.txt 2>$out/check_${pid}_thorough.err; echo "exit=$? (tier thorough, restricted to the harnesses the native sweep flagged: $hits)" >> $out/check_${pid}_thorough.txt)
-    if grep -q "^VIOLATION" $out/check_${pid}_thorough.txt; then cp $out/check_${pid}_thorough.txt $out/check_$pid.txt; fi
-  fi
-fi
-if [ -z "$hits" ] || { ! grep -q "^VIOLATION" $out/check_$pid.txt && grep -q "no obligation was generated" $out/check_$pid.txt; }; then
-  (cd $V && python3 check.py $pid --tier $tier > $out/check_$pid.txt 2>$out/check_$pid.err; echo "exit=$? (tier $tier, full check; native sweep flagged nothing the restricted runs could decide)" >> $out/check_$pid.txt)
-fi
-hif [ -n "$hits" ]; then
-  (cd $V && VERIF_ONLY="$hits" python3 check.py $pid --tier $tier > $out/check_$pid.txt 2>$out/check_$pid.err; echo "exit=$? (tier $tier, restricted to the harnesses the native sweep flagged: $hits)" >> $out/check_$pid.txt)
-  if ! grep -q "^VIOLATION" $out/check_$pid.txt && [ "$tier" = quick ]; then
-    # the flagged harnesses may belong to the thorough tier only (larger bounds, slow ones)
-    (cd $V && VERIF_ONLY="$hits" python3 check.py $pid --tier thorough > $out/check_${pid}_thorough.txt 2>$out/check_${pid}_thorough.err; echo "exit=$? (tier thorough, restricted to the harnesses the native sweep flagged: $hits)" >> $out/check_${pid}_thorough.txt)
-    if grep -q "^VIOLATION" $out/check_${pid}_thorough.txt; then cp $out/check_${pid}_thorough.txt $out/check_$pid.txt; fi
-  fi
-fi
-if [ -z "$hits" ] || { ! grep -q "^VIOLATION" $out/check_$pid.txt && grep -q "no obligation was generated" $out/check_$pid.txt; }; then
-  (cd $V && python3 check.py $pid --tier $tier > $out/check_$pid.txt 2>$out/check_$pid.err; echo "exit=$? (tier $tier, full check; native sweep flagged nothing the restricted runs could decide)" >> $out/check_$pid.txt)
-fi
-iif [ -n "$hits" ]; then
-  (cd $V && VERIF_ONLY="$hits" python3 check.py $pid --tier $tier > $out/check_$pid.txt 2>$out/check_$pid.err; echo "exit=$? (tier $tier, restricted to the harnesses the native sweep flagged: $hits)" >> $out/check_$pid.txt)
-  if ! grep -q "^VIOLATION" $out/check_$pid.txt && [ "$tier" = quick ]; then
-    # the flagged harnesses may belong to the thorough tier only (larger bounds, slow ones)
-    (cd $V && VERIF_ONLY="$hits" python3 check.py $pid --tier thorough > $out/check_${pid}_thorough.txt 2>$out/check_${pid}_thorough.err; echo "exit=$? (tier thorough, restricted to the harnesses the native sweep flagged: $hits)" >> $out/check_${pid}_thorough.txt)
-    if grep -q "^VIOLATION" $out/check_${pid}_thorough.txt; then cp $out/check_${pid}_thorough.txt $out/check_$pid.txt; fi
-  fi
-fi
-if [ -z "$hits" ] || { ! grep -q "^VIOLATION" $out/check_$pid.txt && grep -q "no obligation was generated" $out/check_$pid.txt; }; then
-  (cd $V && python3 check.py $pid --tier $tier > $out/check_$pid.txt 2>$out/check_$pid.err; echo "exit=$? (tier $tier, full check; native sweep flagged nothing the restricted runs could decide)" >> $out/check_$pid.txt)
-fi
-tif [ -n "$hits" ]; then
-  (cd $V && VERIF_ONLY="$hits" python3 check.py $pid --tier $tier > $out/check_$pid.txt 2>$out/check_$pid.err; echo "exit=$? (tier $tier, restricted to the harnesses the native sweep flagged: $hits)" >> $out/check_$pid.txt)
-  if ! grep -q "^VIOLATION" $out/check_$pid.txt && [ "$tier" = quick ]; then
-    # the flagged harnesses may belong to the thorough tier only (larger bounds, slow ones)
-    (cd $V && VERIF_ONLY="$hits" python3 check.py $pid --tier thorough > $out/check_${pid}_thorough.txt 2>$out/check_${pid}_thorough.err; echo "exit=$? (tier thorough, restricted to the harnesses the native sweep flagged: $hits)" >> $out/check_${pid}_thorough.txt)
-    if grep -q "^VIOLATION" $out/check_${pid}_thorough.txt; then cp $out/check_${pid}_thorough.txt $out/check_$pid.txt; fi
-  fi
-fi
-if [ -z "$hits" ] || { ! grep -q "^VIOLATION" $out/check_$pid.txt && grep -q "no obligation was generated" $out/check_$pid.txt; }; then
-  (cd $V && python3 check.py $pid --tier $tier > $out/check_$pid.txt 2>$out/check_$pid.err; echo "exit=$? (tier $tier, full check; native sweep flagged nothing the restricted runs could decide)" >> $out/check_$pid.txt)
-fi
-sif [ -n "$hits" ]; then
-  (cd $V && VERIF_ONLY="$hits" python3 check.py $pid --tier $tier > $out/check_$pid.txt 2>$out/check_$pid.err; echo "exit=$? (tier $tier, restricted to the harnesses the native sweep flagged: $hits)" >> $out/check_$pid.txt)
-  if ! grep -q "^VIOLATION" $out/check_$pid.txt && [ "$tier" = quick ]; then
-    # the flagged harnesses may belong to the thorough tier only (larger bounds, slow ones)
-    (cd $V && VERIF_ONLY="$hits" python3 check.py $pid --tier thorough > $out/check_${pid}_thorough.txt 2>$out/check_${pid}_thorough.err; echo "exit=$? (tier thorough, restricted to the harnesses the native sweep flagged: $hits)" >> $out/check_${pid}_thorough.txt)
-    if grep -q "^VIOLATION" $out/check_${pid}_thorough.txt; then cp $out/check_${pid}_thorough.txt $out/check_$pid.txt; fi
-  fi
-fi
-if [ -z "$hits" ] || { ! grep -q "^VIOLATION" $out/check_$pid.txt && grep -q "no obligation was generated" $out/check_$pid.txt; }; then
-  (cd $V && python3 check.py $pid --tier $tier > $out/check_$pid.txt 2>$out/check_$pid.err; echo "exit=$? (tier $tier, full check; native sweep flagged nothing the restricted runs could decide)" >> $out/check_$pid.txt)
-fi
-"if [ -n "$hits" ]; then
-  (cd $V && VERIF_ONLY="$hits" python3 check.py $pid --tier $tier > $out/check_$pid.txt 2>$out/check_$pid.err; echo "exit=$? (tier $tier, restricted to the harnesses the native sweep flagged: $hits)" >> $out/check_$pid.txt)
-  if ! grep -q "^VIOLATION" $out/check_$pid.txt && [ "$tier" = quick ]; then
-    # the flagged harnesses may belong to the thorough tier only (larger bounds, slow ones)
-    (cd $V && VERIF_ONLY="$hits" python3 check.py $pid --tier thorough > $out/check_${pid}_thorough.txt 2>$out/check_${pid}_thorough.err; echo "exit=$? (tier thorough, restricted to the harnesses the native sweep flagged: $hits)" >> $out/check_${pid}_thorough.txt)
-    if grep -q "^VIOLATION" $out/check_${pid}_thorough.txt; then cp $out/check_${pid}_thorough.txt $out/check_$pid.txt; fi
-  fi
-fi
-if [ -z "$hits" ] || { ! grep -q "^VIOLATION" $out/check_$pid.txt && grep -q "no obligation was generated" $out/check_$pid.txt; }; then
-  (cd $V && python3 check.py $pid --tier $tier > $out/check_$pid.txt 2>$out/check_$pid.err; echo "exit=$? (tier $tier, full check; native sweep flagged nothing the restricted runs could decide)" >> $out/check_$pid.txt)
-fi
- if [ -n "$hits" ]; then
-  (cd $V && VERIF_ONLY="$hits" python3 check.py $pid --tier $tier > $out/check_$pid.txt 2>$out/check_$pid.err; echo "exit=$? (tier $tier, restricted to the harnesses the native sweep flagged: $hits)" >> $out/check_$pid.txt)
-  if ! grep -q "^VIOLATION" $out/check_$pid.txt && [ "$tier" = quick ]; then
-    # the flagged harnesses may belong to the thorough tier only (larger bounds, slow ones)
-    (cd $V && VERIF_ONLY="$hits" python3 check.py $pid --tier thorough > $out/check_${pid}_thorough.txt 2>$out/check_${pid}_thorough.err; echo "exit=$? (tier thorough, restricted to the harnesses the native sweep flagged: $hits)" >> $out/check_${pid}_thorough.txt)
-    if grep -q "^VIOLATION" $out/check_${pid}_thorough.txt; then cp $out/check_${pid}_thorough.txt $out/check_$pid.txt; fi
-  fi
-fi
-if [ -z "$hits" ] || { ! grep -q "^VIOLATION" $out/check_$pid.txt && grep -q "no obligation was generated" $out/check_$pid.txt; }; then
-  (cd $V && python3 check.py $pid --tier $tier > $out/check_$pid.txt 2>$out/check_$pid.err; echo "exit=$? (tier $tier, full check; native sweep flagged nothing the restricted runs could decide)" >> $out/check_$pid.txt)
-fi
-pif [ -n "$hits" ]; then
-  (cd $V && VERIF_ONLY="$hits" python3 check.py $pid --tier $tier > $out/check_$pid.txt 2>$out/check_$pid.err; echo "exit=$? (tier $tier, restricted to the harnesses the native sweep flagged: $hits)" >> $out/check_$pid.txt)
-  if ! grep -q "^VIOLATION" $out/check_$pid.txt && [ "$tier" = quick ]; then
-    # the flagged harnesses may belong to the thorough tier only (larger bounds, slow ones)
-    (cd $V && VERIF_ONLY="$hits" python3 check.py $pid --tier thorough > $out/check_${pid}_thorough.txt 2>$out/check_${pid}_thorough.err; echo "exit=$? (tier thorough, restricted to the harnesses the native sweep flagged: $hits)" >> $out/check_${pid}_thorough.txt)
-    if grep -q "^VIOLATION" $out/check_${pid}_thorough.txt; then cp $out/check_${pid}_thorough.txt $out/check_$pid.txt; fi
-  fi
-fi
-if [ -z "$hits" ] || { ! grep -q "^VIOLATION" $out/check_$pid.txt && grep -q "no obligation was generated" $out/check_$pid.txt; }; then
-  (cd $V && python3 check.py $pid --tier $tier > $out/check_$pid.txt 2>$out/check_$pid.err; echo "exit=$? (tier $tier, full check; native sweep flagged nothing the restricted runs could decide)" >> $out/check_$pid.txt)
-fi
-yif [ -n "$hits" ]; then
-  (cd $V && VERIF_ONLY="$hits" python3 check.py $pid --tier $tier > $out/check_$pid.txt 2>$out/check_$pid.err; echo "exit=$? (tier $tier, restricted to the harnesses the native sweep flagged: $hits)" >> $out/check_$pid.txt)
-  if ! grep -q "^VIOLATION" $out/check_$pid.txt && [ "$tier" = quick ]; then
-    # the flagged harnesses may belong to the thorough tier only (larger bounds, slow ones)
-    (cd $V && VERIF_ONLY="$hits" python3 check.py $pid --tier thorough > $out/check_${pid}_thorough.txt 2>$out/check_${pid}_thorough.err; echo "exit=$? (tier thorough, restricted to the harnesses the native sweep flagged: $hits)" >> $out/check_${pid}_thorough.txt)
-    if grep -q "^VIOLATION" $out/check_${pid}_thorough.txt; then cp $out/check_${pid}_thorough.txt $out/check_$pid.txt; fi
-  fi
-fi
-if [ -z "$hits" ] || { ! grep -q "^VIOLATION" $out/check_$pid.txt && grep -q "no obligation was generated" $out/check_$pid.txt; }; then
-  (cd $V && python3 check.py $pid --tier $tier > $out/check_$pid.txt 2>$out/check_$pid.err; echo "exit=$? (tier $tier, full check; native sweep flagged nothing the restricted runs could decide)" >> $out/check_$pid.txt)
-fi
-tif [ -n "$hits" ]; then
-  (cd $V && VERIF_ONLY="$hits" python3 check.py $pid --tier $tier > $out/check_$pid.txt 2>$out/check_$pid.err; echo "exit=$? (tier $tier, restricted to the harnesses the native sweep flagged: $hits)" >> $out/check_$pid.txt)
-  if ! grep -q "^VIOLATION" $out/check_$pid.txt && [ "$tier" = quick ]; then
-    # the flagged harnesses may belong to the thorough tier only (larger bounds, slow ones)
-    (cd $V && VERIF_ONLY="$hits" python3 check.py $pid --tier thorough > $out/check_${pid}_thorough.txt 2>$out/check_${pid}_thorough.err; echo "exit=$? (tier thorough, restricted to the harnesses the native sweep flagged: $hits)" >> $out/check_${pid}_thorough.txt)
-    if grep -q "^VIOLATION" $out/check_${pid}_thorough.txt; then cp $out/check_${pid}_thorough.txt $out/check_$pid.txt; fi
-  fi
-fi
-if [ -z "$hits" ] || { ! grep -q "^VIOLATION" $out/check_$pid.txt && grep -q "no obligation was generated" $out/check_$pid.txt; }; then
-  (cd $V && python3 check.py $pid --tier $tier > $out/check_$pid.txt 2>$out/check_$pid.err; echo "exit=$? (tier $tier, full check; native sweep flagged nothing the restricted runs could decide)" >> $out/check_$pid.txt)
-fi
-hif [ -n "$hits" ]; then
-  (cd $V && VERIF_ONLY="$hits" python3 check.py $pid --tier $tier > $out/check_$pid.txt 2>$out/check_$pid.err; echo "exit=$? (tier $tier, restricted to the harnesses the native sweep flagged: $hits)" >> $out/check_$pid.txt)
-  if ! grep -q "^VIOLATION" $out/check_$pid.txt && [ "$tier" = quick ]; then
-    # the flagged harnesses may belong to the thorough tier only (larger bounds, slow ones)
-    (cd $V && VERIF_ONLY="$hits" python3 check.py $pid --tier thorough > $out/check_${pid}_thorough.txt 2>$out/check_${pid}_thorough.err; echo "exit=$? (tier thorough, restricted to the harnesses the native sweep flagged: $hits)" >> $out/check_${pid}_thorough.txt)
-    if grep -q "^VIOLATION" $out/check_${pid}_thorough.txt; then cp $out/check_${pid}_thorough.txt $out/check_$pid.txt; fi
-  fi
-fi
-if [ -z "$hits" ] || { ! grep -q "^VIOLATION" $out/check_$pid.txt && grep -q "no obligation was generated" $out/check_$pid.txt; }; then
-  (cd $V && python3 check.py $pid --tier $tier > $out/check_$pid.txt 2>$out/check_$pid.err; echo "exit=$? (tier $tier, full check; native sweep flagged nothing the restricted runs could decide)" >> $out/check_$pid.txt)
-fi
-oif [ -n "$hits" ]; then
-  (cd $V && VERIF_ONLY="$hits" python3 check.py $pid --tier $tier > $out/check_$pid.txt 2>$out/check_$pid.err; echo "exit=$? (tier $tier, restricted to the harnesses the native sweep flagged: $hits)" >> $out/check_$pid.txt)
-  if ! grep -q "^VIOLATION" $out/check_$pid.txt && [ "$tier" = quick ]; then
-    # the flagged harnesses may belong to the thorough tier only (larger bounds, slow ones)
-    (cd $V && VERIF_ONLY="$hits" python3 check.py $pid --tier thorough > $out/check_${pid}_thorough.txt 2>$out/check_${pid}_thorough.err; echo "exit=$? (tier thorough, restricted to the harnesses the native sweep flagged: $hits)" >> $out/check_${pid}_thorough.txt)
-    if grep -q "^VIOLATION" $out/check_${pid}_thorough.txt; then cp $out/check_${pid}_thorough.txt $out/check_$pid.txt; fi
-  fi
-fi
-if [ -z "$hits" ] || { ! grep -q "^VIOLATION" $out/check_$pid.txt && grep -q "no obligation was generated" $out/check_$pid.txt; }; then
-  (cd $V && python3 check.py $pid --tier $tier > $out/check_$pid.txt 2>$out/check_$pid.err; echo "exit=$? (tier $tier, full check; native sweep flagged nothing the restricted runs could decide)" >> $out/check_$pid.txt)
-fi
-nif [ -n "$hits" ]; then
-  (cd $V && VERIF_ONLY="$hits" python3 check.py $pid --tier $tier > $out/check_$pid.txt 2>$out/check_$pid.err; echo "exit=$? (tier $tier, restricted to the harnesses the native sweep flagged: $hits)" >> $out/check_$pid.txt)
-  if ! grep -q "^VIOLATION" $out/check_$pid.txt && [ "$tier" = quick ]; then
-    # the flagged harnesses may belong to the thorough tier only (larger bounds, slow ones)
-    (cd $V && VERIF_ONLY="$hits" python3 check.py $pid --tier thorough > $out/check_${pid}_thorough.txt 2>$out/check_${pid}_thorough.err; echo "exit=$? (tier thorough, restricted to the harnesses the native sweep flagged: $hits)" >> $out/check_${pid}_thorough.txt)
-    if grep -q "^VIOLATION" $out/check_${pid}_thorough.txt; then cp $out/check_${pid}_thorough.txt $out/check_$pid.txt; fi
-  fi
-fi
-if [ -z "$hits" ] || { ! grep -q "^VIOLATION" $out/check_$pid.txt && grep -q "no obligation was generated" $out/check_$pid.txt; }; then
-  (cd $V && python3 check.py $pid --tier $tier > $out/check_$pid.txt 2>$out/check_$pid.err; echo "exit=$? (tier $tier, full check; native sweep flagged nothing the restricted runs could decide)" >> $out/check_$pid.txt)
-fi
-3if [ -n "$hits" ]; then
-  (cd $V && VERIF_ONLY="$hits" python3 check.py $pid --tier $tier > $out/check_$pid.txt 2>$out/check_$pid.err; echo "exit=$? (tier $tier, restricted to the harnesses the native sweep flagged: $hits)" >> $out/check_$pid.txt)
-  if ! grep -q "^VIOLATION" $out/check_$pid.txt && [ "$tier" = quick ]; then
-    # the flagged harnesses may belong to the thorough tier only (larger bounds, slow ones)
-    (cd $V && VERIF_ONLY="$hits" python3 check.py $pid --tier thorough > $out/check_${pid}_thorough.txt 2>$out/check_${pid}_thorough.err; echo "exit=$? (tier thorough, restricted to the harnesses the native sweep flagged: $hits)" >> $out/check_${pid}_thorough.txt)
-    if grep -q "^VIOLATION" $out/check_${pid}_thorough.txt; then cp $out/check_${pid}_thorough.txt $out/check_$pid.txt; fi
-  fi
-fi
-if [ -z "$hits" ] || { ! grep -q "^VIOLATION" $out/check_$pid.txt && grep -q "no obligation was generated" $out/check_$pid.txt; }; then
-  (cd $V && python3 check.py $pid --tier $tier > $out/check_$pid.txt 2>$out/check_$pid.err; echo "exit=$? (tier $tier, full check; native sweep flagged nothing the restricted runs could decide)" >> $out/check_$pid.txt)
-fi
- if [ -n "$hits" ]; then
-  (cd $V && VERIF_ONLY="$hits" python3 check.py $pid --tier $tier > $out/check_$pid.txt 2>$out/check_$pid.err; echo "exit=$? (tier $tier, restricted to the harnesses the native sweep flagged: $hits)" >> $out/check_$pid.txt)
-  if ! grep -q "^VIOLATION" $out/check_$pid.txt && [ "$tier" = quick ]; then
-    # the flagged harnesses may belong to the thorough tier only (larger bounds, slow ones)
-    (cd $V && VERIF_ONLY="$hits" python3 check.py $pid --tier thorough > $out/check_${pid}_thorough.txt 2>$out/check_${pid}_thorough.err; echo "exit=$? (tier thorough, restricted to the harnesses the native sweep flagged: $hits)" >> $out/check_${pid}_thorough.txt)
-    if grep -q "^VIOLATION" $out/check_${pid}_thorough.txt; then cp $out/check_${pid}_thorough.txt $out/check_$pid.txt; fi
-  fi
-fi
-if [ -z "$hits" ] || { ! grep -q "^VIOLATION" $out/check_$pid.txt && grep -q "no obligation was generated" $out/check_$pid.txt; }; then
-  (cd $V && python3 check.py $pid --tier $tier > $out/check_$pid.txt 2>$out/check_$pid.err; echo "exit=$? (tier $tier, full check; native sweep flagged nothing the restricted runs could decide)" >> $out/check_$pid.txt)
-fi
-cif [ -n "$hits" ]; then
-  (cd $V && VERIF_ONLY="$hits" python3 check.py $pid --tier $tier > $out/check_$pid.txt 2>$out/check_$pid.err; echo "exit=$? (tier $tier, restricted to the harnesses the native sweep flagged: $hits)" >> $out/check_$pid.txt)
-  if ! grep -q "^VIOLATION" $out/check_$pid.txt && [ "$tier" = quick ]; then
-    # the flagged harnesses may belong to the thorough tier only (larger bounds, slow ones)
-    (cd $V && VERIF_ONLY="$hits" python3 check.py $pid --tier thorough > $out/check_${pid}_thorough.txt 2>$out/check_${pid}_thorough.err; echo "exit=$? (tier thorough, restricted to the harnesses the native sweep flagged: $hits)" >> $out/check_${pid}_thorough.txt)
-    if grep -q "^VIOLATION" $out/check_${pid}_thorough.txt; then cp $out/check_${pid}_thorough.txt $out/check_$pid.txt; fi
-  fi
-fi
-if [ -z "$hits" ] || { ! grep -q "^VIOLATION" $out/check_$pid.txt && grep -q "no obligation was generated" $out/check_$pid.txt; }; then
-  (cd $V && python3 check.py $pid --tier $tier > $out/check_$pid.txt 2>$out/check_$pid.err; echo "exit=$? (tier $tier, full check; native sweep flagged nothing the restricted runs could decide)" >> $out/check_$pid.txt)
-fi
-hif [ -n "$hits" ]; then
-  (cd $V && VERIF_ONLY="$hits" python3 check.py $pid --tier $tier > $out/check_$pid.txt 2>$out/check_$pid.err; echo "exit=$? (tier $tier, restricted to the harnesses the native sweep flagged: $hits)" >> $out/check_$pid.txt)
-  if ! grep -q "^VIOLATION" $out/check_$pid.txt && [ "$tier" = quick ]; then
-    # the flagged harnesses may belong to the thorough tier only (larger bounds, slow ones)
-    (cd $V && VERIF_ONLY="$hits" python3 check.py $pid --tier thorough > $out/check_${pid}_thorough.txt 2>$out/check_${pid}_thorough.err; echo "exit=$? (tier thorough, restricted to the harnesses the native sweep flagged: $hits)" >> $out/check_${pid}_thorough.txt)
-    if grep -q "^VIOLATION" $out/check_${pid}_thorough.txt; then cp $out/check_${pid}_thorough.txt $out/check_$pid.txt; fi
-  fi
-fi
-if [ -z "$hits" ] || { ! grep -q "^VIOLATION" $out/check_$pid.txt && grep -q "no obligation was generated" $out/check_$pid.txt; }; then
-  (cd $V && python3 check.py $pid --tier $tier > $out/check_$pid.txt 2>$out/check_$pid.err; echo "exit=$? (tier $tier, full check; native sweep flagged nothing the restricted runs could decide)" >> $out/check_$pid.txt)
-fi
-eif [ -n "$hits" ]; then
-  (cd $V && VERIF_ONLY="$hits" python3 check.py $pid --tier $tier > $out/check_$pid.txt 2>$out/check_$pid.err; echo "exit=$? (tier $tier, restricted to the harnesses the native sweep flagged: $hits)" >> $out/check_$pid.txt)
-  if ! grep -q "^VIOLATION" $out/check_$pid.txt && [ "$tier" = quick ]; then
-    # the flagged harnesses may belong to the thorough tier only (larger bounds, slow ones)
-    (cd $V && VERIF_ONLY="$hits" python3 check.py $pid --tier thorough > $out/check_${pid}_thorough.txt 2>$out/check_${pid}_thorough.err; echo "exit=$? (tier thorough, restricted to the harnesses the native sweep flagged: $hits)" >> $out/check_${pid}_thorough.txt)
-    if grep -q "^VIOLATION" $out/check_${pid}_thorough.txt; then cp $out/check_${pid}_thorough.txt $out/check_$pid.txt; fi
-  fi
-fi
-if [ -z "$hits" ] || { ! grep -q "^VIOLATION" $out/check_$pid.txt && grep -q "no obligation was generated" $out/check_$pid.txt; }; then
-  (cd $V && python3 check.py $pid --tier $tier > $out/check_$pid.txt 2>$out/check_$pid.err; echo "exit=$? (tier $tier, full check; native sweep flagged nothing the restricted runs could decide)" >> $out/check_$pid.txt)
-fi
-cif [ -n "$hits" ]; then
-  (cd $V && VERIF_ONLY="$hits" python3 check.py $pid --tier $tier > $out/check_$pid.txt 2>$out/check_$pid.err; echo "exit=$? (tier $tier, restricted to the harnesses the native sweep flagged: $hits)" >> $out/check_$pid.txt)
-  if ! grep -q "^VIOLATION" $out/check_$pid.txt && [ "$tier" = quick ]; then
-    # the flagged harnesses may belong to the thorough tier only (larger bounds, slow ones)
-    (cd $V && VERIF_ONLY="$hits" python3 check.py $pid --tier thorough > $out/check_${pid}_thorough.txt 2>$out/check_${pid}_thorough.err; echo "exit=$? (tier thorough, restricted to the harnesses the native sweep flagged: $hits)" >> $out/check_${pid}_thorough.txt)
-    if grep -q "^VIOLATION" $out/check_${pid}_thorough.txt; then cp $out/check_${pid}_thorough.txt $out/check_$pid.txt; fi
-  fi
-fi
-if [ -z "$hits" ] || { ! grep -q "^VIOLATION" $out/check_$pid.txt && grep -q "no obligation was generated" $out/check_$pid.txt; }; then
-  (cd $V && python3 check.py $pid --tier $tier > $out/check_$pid.txt 2>$out/check_$pid.err; echo "exit=$? (tier $tier, full check; native sweep flagged nothing the restricted runs could decide)" >> $out/check_$pid.txt)
-fi
-kif [ -n "$hits" ]; then
-  (cd $V && VERIF_ONLY="$hits" python3 check.py $pid --tier $tier > $out/check_$pid.txt 2>$out/check_$pid.err; echo "exit=$? (tier $tier, restricted to the harnesses the native sweep flagged: $hits)" >> $out/check_$pid.txt)
-  if ! grep -q "^VIOLATION" $out/check_$pid.txt && [ "$tier" = quick ]; then
-    # the flagged harnesses may belong to the thorough tier only (larger bounds, slow ones)
-    (cd $V && VERIF_ONLY="$hits" python3 check.py $pid --tier thorough > $out/check_${pid}_thorough.txt 2>$out/check_${pid}_thorough.err; echo "exit=$? (tier thorough, restricted to the harnesses the native sweep flagged: $hits)" >> $out/check_${pid}_thorough.txt)
-    if grep -q "^VIOLATION" $out/check_${pid}_thorough.txt; then cp $out/check_${pid}_thorough.txt $out/check_$pid.txt; fi
-  fi
-fi
-if [ -z "$hits" ] || { ! grep -q "^VIOLATION" $out/check_$pid.txt && grep -q "no obligation was generated" $out/check_$pid.txt; }; then
-  (cd $V && python3 check.py $pid --tier $tier > $out/check_$pid.txt 2>$out/check_$pid.err; echo "exit=$? (tier $tier, full check; native sweep flagged nothing the restricted runs could decide)" >> $out/check_$pid.txt)
-fi
-.if [ -n "$hits" ]; then
-  (cd $V && VERIF_ONLY="$hits" python3 check.py $pid --tier $tier > $out/check_$pid.txt 2>$out/check_$pid.err; echo "exit=$? (tier $tier, restricted to the harnesses the native sweep flagged: $hits)" >> $out/check_$pid.txt)
-  if ! grep -q "^VIOLATION" $out/check_$pid.txt && [ "$tier" = quick ]; then
-    # the flagged harnesses may belong to the thorough tier only (larger bounds, slow ones)
-    (cd $V && VERIF_ONLY="$hits" python3 check.py $pid --tier thorough > $out/check_${pid}_thorough.txt 2>$out/check_${pid}_thorough.err; echo "exit=$? (tier thorough, restricted to the harnesses the native sweep flagged: $hits)" >> $out/check_${pid}_thorough.txt)
-    if grep -q "^VIOLATION" $out/check_${pid}_thorough.txt; then cp $out/check_${pid}_thorough.txt $out/check_$pid.txt; fi
-  fi
-fi
-if [ -z "$hits" ] || { ! grep -q "^VIOLATION" $out/check_$pid.txt && grep -q "no obligation was generated" $out/check_$pid.txt; }; then
-  (cd $V && python3 check.py $pid --tier $tier > $out/check_$pid.txt 2>$out/check_$pid.err; echo "exit=$? (tier $tier, full check; native sweep flagged nothing the restricted runs could decide)" >> $out/check_$pid.txt)
-fi
-pif [ -n "$hits" ]; then
-  (cd $V && VERIF_ONLY="$hits" python3 check.py $pid --tier $tier > $out/check_$pid.txt 2>$out/check_$pid.err; echo "exit=$? (tier $tier, restricted to the harnesses the native sweep flagged: $hits)" >> $out/check_$pid.txt)
-  if ! grep -q "^VIOLATION" $out/check_$pid.txt && [ "$tier" = quick ]; then
-    # the flagged harnesses may belong to the thorough tier only (larger bounds, slow ones)
-    (cd $V && VERIF_ONLY="$hits" python3 check.py $pid --tier thorough > $out/check_${pid}_thorough.txt 2>$out/check_${pid}_thorough.err; echo "exit=$? (tier thorough, restricted to the harnesses the native sweep flagged: $hits)" >> $out/check_${pid}_thorough.txt)
-    if grep -q "^VIOLATION" $out/check_${pid}_thorough.txt; then cp $out/check_${pid}_thorough.txt $out/check_$pid.txt; fi
-  fi
-fi
-if [ -z "$hits" ] || { ! grep -q "^VIOLATION" $out/check_$pid.txt && grep -q "no obligation was generated" $out/check_$pid.txt; }; then
-  (cd $V && python3 check.py $pid --tier $tier > $out/check_$pid.txt 2>$out/check_$pid.err; echo "exit=$? (tier $tier, full check; native sweep flagged nothing the restricted runs could decide)" >> $out/check_$pid.txt)
-fi
-yif [ -n "$hits" ]; then
-  (cd $V && VERIF_ONLY="$hits" python3 check.py $pid --tier $tier > $out/check_$pid.txt 2>$out/check_$pid.err; echo "exit=$? (tier $tier, restricted to the harnesses the native sweep flagged: $hits)" >> $out/check_$pid.txt)
-  if ! grep -q "^VIOLATION" $out/check_$pid.txt && [ "$tier" = quick ]; then
-    # the flagged harnesses may belong to the thorough tier only (larger bounds, slow ones)
-    (cd $V && VERIF_ONLY="$hits" python3 check.py $pid --tier thorough > $out/check_${pid}_thorough.txt 2>$out/check_${pid}_thorough.err; echo "exit=$? (tier thorough, restricted to the harnesses the native sweep flagged: $hits)" >> $out/check_${pid}_thorough.txt)
-    if grep -q "^VIOLATION" $out/check_${pid}_thorough.txt; then cp $out/check_${pid}_thorough.txt $out/check_$pid.txt; fi
-  fi
-fi
-if [ -z "$hits" ] || { ! grep -q "^VIOLATION" $out/check_$pid.txt && grep -q "no obligation was generated" $out/check_$pid.txt; }; then
-  (cd $V && python3 check.py $pid --tier $tier > $out/check_$pid.txt 2>$out/check_$pid.err; echo "exit=$? (tier $tier, full check; native sweep flagged nothing the restricted runs could decide)" >> $out/check_$pid.txt)
-fi
- if [ -n "$hits" ]; then
-  (cd $V && VERIF_ONLY="$hits" python3 check.py $pid --tier $tier > $out/check_$pid.txt 2>$out/check_$pid.err; echo "exit=$? (tier $tier, restricted to the harnesses the native sweep flagged: $hits)" >> $out/check_$pid.txt)
-  if ! grep -q "^VIOLATION" $out/check_$pid.txt && [ "$tier" = quick ]; then
-    # the flagged harnesses may belong to the thorough tier only (larger bounds, slow ones)
-    (cd $V && VERIF_ONLY="$hits" python3 check.py $pid --tier thorough > $out/check_${pid}_thorough.txt 2>$out/check_${pid}_thorough.err; echo "exit=$? (tier thorough, restricted to the harnesses the native sweep flagged: $hits)" >> $out/check_${pid}_thorough.txt)
-    if grep -q "^VIOLATION" $out/check_${pid}_thorough.txt; then cp $out/check_${pid}_thorough.txt $out/check_$pid.txt; fi
-  fi
-fi
-if [ -z "$hits" ] || { ! grep -q "^VIOLATION" $out/check_$pid.txt && grep -q "no obligation was generated" $out/check_$pid.txt; }; then
-  (cd $V && python3 check.py $pid --tier $tier > $out/check_$pid.txt 2>$out/check_$pid.err; echo "exit=$? (tier $tier, full check; native sweep flagged nothing the restricted runs could decide)" >> $out/check_$pid.txt)
-fi
-$if [ -n "$hits" ]; then
-  (cd $V && VERIF_ONLY="$hits" python3 check.py $pid --tier $tier > $out/check_$pid.txt 2>$out/check_$pid.err; echo "exit=$? (tier $tier, restricted to the harnesses the native sweep flagged: $hits)" >> $out/check_$pid.txt)
-  if ! grep -q "^VIOLATION" $out/check_$pid.txt && [ "$tier" = quick ]; then
-    # the flagged harnesses may belong to the thorough tier only (larger bounds, slow ones)
-    (cd $V && VERIF_ONLY="$hits" python3 check.py $pid --tier thorough > $out/check_${pid}_thorough.txt 2>$out/check_${pid}_thorough.err; echo "exit=$? (tier thorough, restricted to the harnesses the native sweep flagged: $hits)" >> $out/check_${pid}_thorough.txt)
-    if grep -q "^VIOLATION" $out/check_${pid}_thorough.txt; then cp $out/check_${pid}_thorough.txt $out/check_$pid.txt; fi
-  fi
-fi
-if [ -z "$hits" ] || { ! grep -q "^VIOLATION" $out/check_$pid.txt && grep -q "no obligation was generated" $out/check_$pid.txt; }; then
-  (cd $V && python3 check.py $pid --tier $tier > $out/check_$pid.txt 2>$out/check_$pid.err; echo "exit=$? (tier $tier, full check; native sweep flagged nothing the restricted runs could decide)" >> $out/check_$pid.txt)
-fi
-pif [ -n "$hits" ]; then
-  (cd $V && VERIF_ONLY="$hits" python3 check.py $pid --tier $tier > $out/check_$pid.txt 2>$out/check_$pid.err; echo "exit=$? (tier $tier, restricted to the harnesses the native sweep flagged: $hits)" >> $out/check_$pid.txt)
-  if ! grep -q "^VIOLATION" $out/check_$pid.txt && [ "$tier" = quick ]; then
-    # the flagged harnesses may belong to the thorough tier only (larger bounds, slow ones)
-    (cd $V && VERIF_ONLY="$hits" python3 check.py $pid --tier thorough > $out/check_${pid}_thorough.txt 2>$out/check_${pid}_thorough.err; echo "exit=$? (tier thorough, restricted to the harnesses the native sweep flagged: $hits)" >> $out/check_${pid}_thorough.txt)
-    if grep -q "^VIOLATION" $out/check_${pid}_thorough.txt; then cp $out/check_${pid}_thorough.txt $out/check_$pid.txt; fi
-  fi
-fi
-if [ -z "$hits" ] || { ! grep -q "^VIOLATION" $out/check_$pid.txt && grep -q "no obligation was generated" $out/check_$pid.txt; }; then
-  (cd $V && python3 check.py $pid --tier $tier > $out/check_$pid.txt 2>$out/check_$pid.err; echo "exit=$? (tier $tier, full check; native sweep flagged nothing the restricted runs could decide)" >> $out/check_$pid.txt)
-fi
-iif [ -n "$hits" ]; then
-  (cd $V && VERIF_ONLY="$hits" python3 check.py $pid --tier $tier > $out/check_$pid.txt 2>$out/check_$pid.err; echo "exit=$? (tier $tier, restricted to the harnesses the native sweep flagged: $hits)" >> $out/check_$pid.txt)
-  if ! grep -q "^VIOLATION" $out/check_$pid.txt && [ "$tier" = quick ]; then
-    # the flagged harnesses may belong to the thorough tier only (larger bounds, slow ones)
-    (cd $V && VERIF_ONLY="$hits" python3 check.py $pid --tier thorough > $out/check_${pid}_thorough.txt 2>$out/check_${pid}_thorough.err; echo "exit=$? (tier thorough, restricted to the harnesses the native sweep flagged: $hits)" >> $out/check_${pid}_thorough.txt)
-    if grep -q "^VIOLATION" $out/check_${pid}_thorough.txt; then cp $out/check_${pid}_thorough.txt $out/check_$pid.txt; fi
-  fi
-fi
-if [ -z "$hits" ] || { ! grep -q "^VIOLATION" $out/check_$pid.txt && grep -q "no obligation was generated" $out/check_$pid.txt; }; then
-  (cd $V && python3 check.py $pid --tier $tier > $out/check_$pid.txt 2>$out/check_$pid.err; echo "exit=$? (tier $tier, full check; native sweep flagged nothing the restricted runs could decide)" >> $out/check_$pid.txt)
-fi
-dif [ -n "$hits" ]; then
-  (cd $V && VERIF_ONLY="$hits" python3 check.py $pid --tier $tier > $out/check_$pid.txt 2>$out/check_$pid.err; echo "exit=$? (tier $tier, restricted to the harnesses the native sweep flagged: $hits)" >> $out/check_$pid.txt)
-  if ! grep -q "^VIOLATION" $out/check_$pid.txt && [ "$tier" = quick ]; then
-    # the flagged harnesses may belong to the thorough tier only (larger bounds, slow ones)
-    (cd $V && VERIF_ONLY="$hits" python3 check.py $pid --tier thorough > $out/check_${pid}_thorough.txt 2>$out/check_${pid}_thorough.err; echo "exit=$? (tier thorough, restricted to the harnesses the native sweep flagged: $hits)" >> $out/check_${pid}_thorough.txt)
-    if grep -q "^VIOLATION" $out/check_${pid}_thorough.txt; then cp $out/check_${pid}_thorough.txt $out/check_$pid.txt; fi
-  fi
-fi
-if [ -z "$hits" ] || { ! grep -q "^VIOLATION" $out/check_$pid.txt && grep -q "no obligation was generated" $out/check_$pid.txt; }; then
-  (cd $V && python3 check.py $pid --tier $tier > $out/check_$pid.txt 2>$out/check_$pid.err; echo "exit=$? (tier $tier, full check; native sweep flagged nothing the restricted runs could decide)" >> $out/check_$pid.txt)
-fi
- if [ -n "$hits" ]; then
-  (cd $V && VERIF_ONLY="$hits" python3 check.py $pid --tier $tier > $out/check_$pid.txt 2>$out/check_$pid.err; echo "exit=$? (tier $tier, restricted to the harnesses the native sweep flagged: $hits)" >> $out/check_$pid.txt)
-  if ! grep -q "^VIOLATION" $out/check_$pid.txt && [ "$tier" = quick ]; then
-    # the flagged harnesses may belong to the thorough tier only (larger bounds, slow ones)
-    (cd $V && VERIF_ONLY="$hits" python3 check.py $pid --tier thorough > $out/check_${pid}_thorough.txt 2>$out/check_${pid}_thorough.err; echo "exit=$? (tier thorough, restricted to the harnesses the native sweep flagged: $hits)" >> $out/check_${pid}_thorough.txt)
-    if grep -q "^VIOLATION" $out/check_${pid}_thorough.txt; then cp $out/check_${pid}_thorough.txt $out/check_$pid.txt; fi
-  fi
-fi
-if [ -z "$hits" ] || { ! grep -q "^VIOLATION" $out/check_$pid.txt && grep -q "no obligation was generated" $out/check_$pid.txt; }; then
-  (cd $V && python3 check.py $pid --tier $tier > $out/check_$pid.txt 2>$out/check_$pid.err; echo "exit=$? (tier $tier, full check; native sweep flagged nothing the restricted runs could decide)" >> $out/check_$pid.txt)
-fi
--if [ -n "$hits" ]; then
-  (cd $V && VERIF_ONLY="$hits" python3 check.py $pid --tier $tier > $out/check_$pid.txt 2>$out/check_$pid.err; echo "exit=$? (tier $tier, restricted to the harnesses the native sweep flagged: $hits)" >> $out/check_$pid.txt)
-  if ! grep -q "^VIOLATION" $out/check_$pid.txt && [ "$tier" = quick ]; then
-    # the flagged harnesses may belong to the thorough tier only (larger bounds, slow ones)
-    (cd $V && VERIF_ONLY="$hits" python3 check.py $pid --tier thorough > $out/check_${pid}_thorough.txt 2>$out/check_${pid}_thorough.err; echo "exit=$? (tier thorough, restricted to the harnesses the native sweep flagged: $hits)" >> $out/check_${pid}_thorough.txt)
-    if grep -q "^VIOLATION" $out/check_${pid}_thorough.txt; then cp $out/check_${pid}_thorough.txt $out/check_$pid.txt; fi
-  fi
-fi
-if [ -z "$hits" ] || { ! grep -q "^VIOLATION" $out/check_$pid.txt && grep -q "no obligation was generated" $out/check_$pid.txt; }; then
-  (cd $V && python3 check.py $pid --tier $tier > $out/check_$pid.txt 2>$out/check_$pid.err; echo "exit=$? (tier $tier, full check; native sweep flagged nothing the restricted runs could decide)" >> $out/check_$pid.txt)
-fi
--if [ -n "$hits" ]; then
-  (cd $V && VERIF_ONLY="$hits" python3 check.py $pid --tier $tier > $out/check_$pid.txt 2>$out/check_$pid.err; echo "exit=$? (tier $tier, restricted to the harnesses the native sweep flagged: $hits)" >> $out/check_$pid.txt)
-  if ! grep -q "^VIOLATION" $out/check_$pid.txt && [ "$tier" = quick ]; then
-    # the flagged harnesses may belong to the thorough tier only (larger bounds, slow ones)
-    (cd $V && VERIF_ONLY="$hits" python3 check.py $pid --tier thorough > $out/check_${pid}_thorough.txt 2>$out/check_${pid}_thorough.err; echo "exit=$? (tier thorough, restricted to the harnesses the native sweep flagged: $hits)" >> $out/check_${pid}_thorough.txt)
-    if grep -q "^VIOLATION" $out/check_${pid}_thorough.txt; then cp $out/check_${pid}_thorough.txt $out/check_$pid.txt; fi
-  fi
-fi
-if [ -z "$hits" ] || { ! grep -q "^VIOLATION" $out/check_$pid.txt && grep -q "no obligation was generated" $out/check_$pid.txt; }; then
-  (cd $V && python3 check.py $pid --tier $tier > $out/check_$pid.txt 2>$out/check_$pid.err; echo "exit=$? (tier $tier, full check; native sweep flagged nothing the restricted runs could decide)" >> $out/check_$pid.txt)
-fi
-tif [ -n "$hits" ]; then
-  (cd $V && VERIF_ONLY="$hits" python3 check.py $pid --tier $tier > $out/check_$pid.txt 2>$out/check_$pid.err; echo "exit=$? (tier $tier, restricted to the harnesses the native sweep flagged: $hits)" >> $out/check_$pid.txt)
-  if ! grep -q "^VIOLATION" $out/check_$pid.txt && [ "$tier" = quick ]; then
-    # the flagged harnesses may belong to the thorough tier only (larger bounds, slow ones)
-    (cd $V && VERIF_ONLY="$hits" python3 check.py $pid --tier thorough > $out/check_${pid}_thorough.txt 2>$out/check_${pid}_thorough.err; echo "exit=$? (tier thorough, restricted to the harnesses the native sweep flagged: $hits)" >> $out/check_${pid}_thorough.txt)
-    if grep -q "^VIOLATION" $out/check_${pid}_thorough.txt; then cp $out/check_${pid}_thorough.txt $out/check_$pid.txt; fi
-  fi
-fi
-if [ -z "$hits" ] || { ! grep -q "^VIOLATION" $out/check_$pid.txt && grep -q "no obligation was generated" $out/check_$pid.txt; }; then
-  (cd $V && python3 check.py $pid --tier $tier > $out/check_$pid.txt 2>$out/check_$pid.err; echo "exit=$? (tier $tier, full check; native sweep flagged nothing the restricted runs could decide)" >> $out/check_$pid.txt)
-fi
-iif [ -n "$hits" ]; then
-  (cd $V && VERIF_ONLY="$hits" python3 check.py $pid --tier $tier > $out/check_$pid.txt 2>$out/check_$pid.err; echo "exit=$? (tier $tier, restricted to the harnesses the native sweep flagged: $hits)" >> $out/check_$pid.txt)
-  if ! grep -q "^VIOLATION" $out/check_$pid.txt && [ "$tier" = quick ]; then
-    # the flagged harnesses may belong to the thorough tier only (larger bounds, slow ones)
-    (cd $V && VERIF_ONLY="$hits" python3 check.py $pid --tier thorough > $out/check_${pid}_thorough.txt 2>$out/check_${pid}_thorough.err; echo "exit=$? (tier thorough, restricted to the harnesses the native sweep flagged: $hits)" >> $out/check_${pid}_thorough.txt)
-    if grep -q "^VIOLATION" $out/check_${pid}_thorough.txt; then cp $out/check_${pid}_thorough.txt $out/check_$pid.txt; fi
-  fi
-fi
-if [ -z "$hits" ] || { ! grep -q "^VIOLATION" $out/check_$pid.txt && grep -q "no obligation was generated" $out/check_$pid.txt; }; then
-  (cd $V && python3 check.py $pid --tier $tier > $out/check_$pid.txt 2>$out/check_$pid.err; echo "exit=$? (tier $tier, full check; native sweep flagged nothing the restricted runs could decide)" >> $out/check_$pid.txt)
-fi
-eif [ -n "$hits" ]; then
-  (cd $V && VERIF_ONLY="$hits" python3 check.py $pid --tier $tier > $out/check_$pid.txt 2>$out/check_$pid.err; echo "exit=$? (tier $tier, restricted to the harnesses the native sweep flagged: $hits)" >> $out/check_$pid.txt)
-  if ! grep -q "^VIOLATION" $out/check_$pid.txt && [ "$tier" = quick ]; then
-    # the flagged harnesses may belong to the thorough tier only (larger bounds, slow ones)
-    (cd $V && VERIF_ONLY="$hits" python3 check.py $pid --tier thorough > $out/check_${pid}_thorough.txt 2>$out/check_${pid}_thorough.err; echo "exit=$? (tier thorough, restricted to the harnesses the native sweep flagged: $hits)" >> $out/check_${pid}_thorough.txt)
-    if grep -q "^VIOLATION" $out/check_${pid}_thorough.txt; then cp $out/check_${pid}_thorough.txt $out/check_$pid.txt; fi
-  fi
-fi
-if [ -z "$hits" ] || { ! grep -q "^VIOLATION" $out/check_$pid.txt && grep -q "no obligation was generated" $out/check_$pid.txt; }; then
-  (cd $V && python3 check.py $pid --tier $tier > $out/check_$pid.txt 2>$out/check_$pid.err; echo "exit=$? (tier $tier, full check; native sweep flagged nothing the restricted runs could decide)" >> $out/check_$pid.txt)
-fi
-rif [ -n "$hits" ]; then
-  (cd $V && VERIF_ONLY="$hits" python3 check.py $pid --tier $tier > $out/check_$pid.txt 2>$out/check_$pid.err; echo "exit=$? (tier $tier, restricted to the harnesses the native sweep flagged: $hits)" >> $out/check_$pid.txt)
-  if ! grep -q "^VIOLATION" $out/check_$pid.txt && [ "$tier" = quick ]; then
-    # the flagged harnesses may belong to the thorough tier only (larger bounds, slow ones)
-    (cd $V && VERIF_ONLY="$hits" python3 check.py $pid --tier thorough > $out/check_${pid}_thorough.txt 2>$out/check_${pid}_thorough.err; echo "exit=$? (tier thorough, restricted to the harnesses the native sweep flagged: $hits)" >> $out/check_${pid}_thorough.txt)
-    if grep -q "^VIOLATION" $out/check_${pid}_thorough.txt; then cp $out/check_${pid}_thorough.txt $out/check_$pid.txt; fi
-  fi
-fi
-if [ -z "$hits" ] || { ! grep -q "^VIOLATION" $out/check_$pid.txt && grep -q "no obligation was generated" $out/check_$pid.txt; }; then
-  (cd $V && python3 check.py $pid --tier $tier > $out/check_$pid.txt 2>$out/check_$pid.err; echo "exit=$? (tier $tier, full check; native sweep flagged nothing the restricted runs could decide)" >> $out/check_$pid.txt)
-fi
- if [ -n "$hits" ]; then
-  (cd $V && VERIF_ONLY="$hits" python3 check.py $pid --tier $tier > $out/check_$pid.txt 2>$out/check_$pid.err; echo "exit=$? (tier $tier, restricted to the harnesses the native sweep flagged: $hits)" >> $out/check_$pid.txt)
-  if ! grep -q "^VIOLATION" $out/check_$pid.txt && [ "$tier" = quick ]; then
-    # the flagged harnesses may belong to the thorough tier only (larger bounds, slow ones)
-    (cd $V && VERIF_ONLY="$hits" python3 check.py $pid --tier thorough > $out/check_${pid}_thorough.txt 2>$out/check_${pid}_thorough.err; echo "exit=$? (tier thorough, restricted to the harnesses the native sweep flagged: $hits)" >> $out/check_${pid}_thorough.txt)
-    if grep -q "^VIOLATION" $out/check_${pid}_thorough.txt; then cp $out/check_${pid}_thorough.txt $out/check_$pid.txt; fi
-  fi
-fi
-if [ -z "$hits" ] || { ! grep -q "^VIOLATION" $out/check_$pid.txt && grep -q "no obligation was generated" $out/check_$pid.txt; }; then
-  (cd $V && python3 check.py $pid --tier $tier > $out/check_$pid.txt 2>$out/check_$pid.err; echo "exit=$? (tier $tier, full check; native sweep flagged nothing the restricted runs could decide)" >> $out/check_$pid.txt)
-fi
-$if [ -n "$hits" ]; then
-  (cd $V && VERIF_ONLY="$hits" python3 check.py $pid --tier $tier > $out/check_$pid.txt 2>$out/check_$pid.err; echo "exit=$? (tier $tier, restricted to the harnesses the native sweep flagged: $hits)" >> $out/check_$pid.txt)
-  if ! grep -q "^VIOLATION" $out/check_$pid.txt && [ "$tier" = quick ]; then
-    # the flagged harnesses may belong to the thorough tier only (larger bounds, slow ones)
-    (cd $V && VERIF_ONLY="$hits" python3 check.py $pid --tier thorough > $out/check_${pid}_thorough.txt 2>$out/check_${pid}_thorough.err; echo "exit=$? (tier thorough, restricted to the harnesses the native sweep flagged: $hits)" >> $out/check_${pid}_thorough.txt)
-    if grep -q "^VIOLATION" $out/check_${pid}_thorough.txt; then cp $out/check_${pid}_thorough.txt $out/check_$pid.txt; fi
-  fi
-fi
-if [ -z "$hits" ] || { ! grep -q "^VIOLATION" $out/check_$pid.txt && grep -q "no obligation was generated" $out/check_$pid.txt; }; then
-  (cd $V && python3 check.py $pid --tier $tier > $out/check_$pid.txt 2>$out/check_$pid.err; echo "exit=$? (tier $tier, full check; native sweep flagged nothing the restricted runs could decide)" >> $out/check_$pid.txt)
-fi
-tif [ -n "$hits" ]; then
-  (cd $V && VERIF_ONLY="$hits" python3 check.py $pid --tier $tier > $out/check_$pid.txt 2>$out/check_$pid.err; echo "exit=$? (tier $tier, restricted to the harnesses the native sweep flagged: $hits)" >> $out/check_$pid.txt)
-  if ! grep -q "^VIOLATION" $out/check_$pid.txt && [ "$tier" = quick ]; then
-    # the flagged harnesses may belong to the thorough tier only (larger bounds, slow ones)
-    (cd $V && VERIF_ONLY="$hits" python3 check.py $pid --tier thorough > $out/check_${pid}_thorough.txt 2>$out/check_${pid}_thorough.err; echo "exit=$? (tier thorough, restricted to the harnesses the native sweep flagged: $hits)" >> $out/check_${pid}_thorough.txt)
-    if grep -q "^VIOLATION" $out/check_${pid}_thorough.txt; then cp $out/check_${pid}_thorough.txt $out/check_$pid.txt; fi
-  fi
-fi
-if [ -z "$hits" ] || { ! grep -q "^VIOLATION" $out/check_$pid.txt && grep -q "no obligation was generated" $out/check_$pid.txt; }; then
-  (cd $V && python3 check.py $pid --tier $tier > $out/check_$pid.txt 2>$out/check_$pid.err; echo "exit=$? (tier $tier, full check; native sweep flagged nothing the restricted runs could decide)" >> $out/check_$pid.txt)
-fi
-iif [ -n "$hits" ]; then
-  (cd $V && VERIF_ONLY="$hits" python3 check.py $pid --tier $tier > $out/check_$pid.txt 2>$out/check_$pid.err; echo "exit=$? (tier $tier, restricted to the harnesses the native sweep flagged: $hits)" >> $out/check_$pid.txt)
-  if ! grep -q "^VIOLATION" $out/check_$pid.txt && [ "$tier" = quick ]; then
-    # the flagged harnesses may belong to the thorough tier only (larger bounds, slow ones)
-    (cd $V && VERIF_ONLY="$hits" python3 check.py $pid --tier thorough > $out/check_${pid}_thorough.txt 2>$out/check_${pid}_thorough.err; echo "exit=$? (tier thorough, restricted to the harnesses the native sweep flagged: $hits)" >> $out/check_${pid}_thorough.txt)
-    if grep -q "^VIOLATION" $out/check_${pid}_thorough.txt; then cp $out/check_${pid}_thorough.txt $out/check_$pid.txt; fi
-  fi
-fi
-if [ -z "$hits" ] || { ! grep -q "^VIOLATION" $out/check_$pid.txt && grep -q "no obligation was generated" $out/check_$pid.txt; }; then
-  (cd $V && python3 check.py $pid --tier $tier > $out/check_$pid.txt 2>$out/check_$pid.err; echo "exit=$? (tier $tier, full check; native sweep flagged nothing the restricted runs could decide)" >> $out/check_$pid.txt)
-fi
-eif [ -n "$hits" ]; then
-  (cd $V && VERIF_ONLY="$hits" python3 check.py $pid --tier $tier > $out/check_$pid.txt 2>$out/check_$pid.err; echo "exit=$? (tier $tier, restricted to the harnesses the native sweep flagged: $hits)" >> $out/check_$pid.txt)
-  if ! grep -q "^VIOLATION" $out/check_$pid.txt && [ "$tier" = quick ]; then
-    # the flagged harnesses may belong to the thorough tier only (larger bounds, slow ones)
-    (cd $V && VERIF_ONLY="$hits" python3 check.py $pid --tier thorough > $out/check_${pid}_thorough.txt 2>$out/check_${pid}_thorough.err; echo "exit=$? (tier thorough, restricted to the harnesses the native sweep flagged: $hits)" >> $out/check_${pid}_thorough.txt)
-    if grep -q "^VIOLATION" $out/check_${pid}_thorough.txt; then cp $out/check_${pid}_thorough.txt $out/check_$pid.txt; fi
-  fi
-fi
-if [ -z "$hits" ] || { ! grep -q "^VIOLATION" $out/check_$pid.txt && grep -q "no obligation was generated" $out/check_$pid.txt; }; then
-  (cd $V && python3 check.py $pid --tier $tier > $out/check_$pid.txt 2>$out/check_$pid.err; echo "exit=$? (tier $tier, full check; native sweep flagged nothing the restricted runs could decide)" >> $out/check_$pid.txt)
-fi
-rif [ -n "$hits" ]; then
-  (cd $V && VERIF_ONLY="$hits" python3 check.py $pid --tier $tier > $out/check_$pid.txt 2>$out/check_$pid.err; echo "exit=$? (tier $tier, restricted to the harnesses the native sweep flagged: $hits)" >> $out/check_$pid.txt)
-  if ! grep -q "^VIOLATION" $out/check_$pid.txt && [ "$tier" = quick ]; then
-    # the flagged harnesses may belong to the thorough tier only (larger bounds, slow ones)
-    (cd $V && VERIF_ONLY="$hits" python3 check.py $pid --tier thorough > $out/check_${pid}_thorough.txt 2>$out/check_${pid}_thorough.err; echo "exit=$? (tier thorough, restricted to the harnesses the native sweep flagged: $hits)" >> $out/check_${pid}_thorough.txt)
-    if grep -q "^VIOLATION" $out/check_${pid}_thorough.txt; then cp $out/check_${pid}_thorough.txt $out/check_$pid.txt; fi
-  fi
-fi
-if [ -z "$hits" ] || { ! grep -q "^VIOLATION" $out/check_$pid.txt && grep -q "no obligation was generated" $out/check_$pid.txt; }; then
-  (cd $V && python3 check.py $pid --tier $tier > $out/check_$pid.txt 2>$out/check_$pid.err; echo "exit=$? (tier $tier, full check; native sweep flagged nothing the restricted runs could decide)" >> $out/check_$pid.txt)
-fi
- if [ -n "$hits" ]; then
-  (cd $V && VERIF_ONLY="$hits" python3 check.py $pid --tier $tier > $out/check_$pid.txt 2>$out/check_$pid.err; echo "exit=$? (tier $tier, restricted to the harnesses the native sweep flagged: $hits)" >> $out/check_$pid.txt)
-  if ! grep -q "^VIOLATION" $out/check_$pid.txt && [ "$tier" = quick ]; then
-    # the flagged harnesses may belong to the thorough tier only (larger bounds, slow ones)
-    (cd $V && VERIF_ONLY="$hits" python3 check.py $pid --tier thorough > $out/check_${pid}_thorough.txt 2>$out/check_${pid}_thorough.err; echo "exit=$? (tier thorough, restricted to the harnesses the native sweep flagged: $hits)" >> $out/check_${pid}_thorough.txt)
-    if grep -q "^VIOLATION" $out/check_${pid}_thorough.txt; then cp $out/check_${pid}_thorough.txt $out/check_$pid.txt; fi
-  fi
-fi
-if [ -z "$hits" ] || { ! grep -q "^VIOLATION" $out/check_$pid.txt && grep -q "no obligation was generated" $out/check_$pid.txt; }; then
-  (cd $V && python3 check.py $pid --tier $tier > $out/check_$pid.txt 2>$out/check_$pid.err; echo "exit=$? (tier $tier, full check; native sweep flagged nothing the restricted runs could decide)" >> $out/check_$pid.txt)
-fi
->if [ -n "$hits" ]; then
-  (cd $V && VERIF_ONLY="$hits" python3 check.py $pid --tier $tier > $out/check_$pid.txt 2>$out/check_$pid.err; echo "exit=$? (tier $tier, restricted to the harnesses the native sweep flagged: $hits)" >> $out/check_$pid.txt)
-  if ! grep -q "^VIOLATION" $out/check_$pid.txt && [ "$tier" = quick ]; then
-    # the flagged harnesses may belong to the thorough tier only (larger bounds, slow ones)
-    (cd $V && VERIF_ONLY="$hits" python3 check.py $pid --tier thorough > $out/check_${pid}_thorough.txt 2>$out/check_${pid}_thorough.err; echo "exit=$? (tier thorough, restricted to the harnesses the native sweep flagged: $hits)" >> $out/check_${pid}_thorough.txt)
-    if grep -q "^VIOLATION" $out/check_${pid}_thorough.txt; then cp $out/check_${pid}_thorough.txt $out/check_$pid.txt; fi
-  fi
-fi
-if [ -z "$hits" ] || { ! grep -q "^VIOLATION" $out/check_$pid.txt && grep -q "no obligation was generated" $out/check_$pid.txt; }; then
-  (cd $V && python3 check.py $pid --tier $tier > $out/check_$pid.txt 2>$out/check_$pid.err; echo "exit=$? (tier $tier, full check; native sweep flagged nothing the restricted runs could decide)" >> $out/check_$pid.txt)
-fi
- if [ -n "$hits" ]; then
-  (cd $V && VERIF_ONLY="$hits" python3 check.py $pid --tier $tier > $out/check_$pid.txt 2>$out/check_$pid.err; echo "exit=$? (tier $tier, restricted to the harnesses the native sweep flagged: $hits)" >> $out/check_$pid.txt)
-  if ! grep -q "^VIOLATION" $out/check_$pid.txt && [ "$tier" = quick ]; then
-    # the flagged harnesses may belong to the thorough tier only (larger bounds, slow ones)
-    (cd $V && VERIF_ONLY="$hits" python3 check.py $pid --tier thorough > $out/check_${pid}_thorough.txt 2>$out/check_${pid}_thorough.err; echo "exit=$? (tier thorough, restricted to the harnesses the native sweep flagged: $hits)" >> $out/check_${pid}_thorough.txt)
-    if grep -q "^VIOLATION" $out/check_${pid}_thorough.txt; then cp $out/check_${pid}_thorough.txt $out/check_$pid.txt; fi
-  fi
-fi
-if [ -z "$hits" ] || { ! grep -q "^VIOLATION" $out/check_$pid.txt && grep -q "no obligation was generated" $out/check_$pid.txt; }; then
-  (cd $V && python3 check.py $pid --tier $tier > $out/check_$pid.txt 2>$out/check_$pid.err; echo "exit=$? (tier $tier, full check; native sweep flagged nothing the restricted runs could decide)" >> $out/check_$pid.txt)
-fi
-$if [ -n "$hits" ]; then
-  (cd $V && VERIF_ONLY="$hits" python3 check.py $pid --tier $tier > $out/check_$pid.txt 2>$out/check_$pid.err; echo "exit=$? (tier $tier, restricted to the harnesses the native sweep flagged: $hits)" >> $out/check_$pid.txt)
-  if ! grep -q "^VIOLATION" $out/check_$pid.txt && [ "$tier" = quick ]; then
-    # the flagged harnesses may belong to the thorough tier only (larger bounds, slow ones)
-    (cd $V && VERIF_ONLY="$hits" python3 check.py $pid --tier thorough > $out/check_${pid}_thorough.txt 2>$out/check_${pid}_thorough.err; echo "exit=$? (tier thorough, restricted to the harnesses the native sweep flagged: $hits)" >> $out/check_${pid}_thorough.txt)
-    if grep -q "^VIOLATION" $out/check_${pid}_thorough.txt; then cp $out/check_${pid}_thorough.txt $out/check_$pid.txt; fi
-  fi
-fi
-if [ -z "$hits" ] || { ! grep -q "^VIOLATION" $out/check_$pid.txt && grep -q "no obligation was generated" $out/check_$pid.txt; }; then
-  (cd $V && python3 check.py $pid --tier $tier > $out/check_$pid.txt 2>$out/check_$pid.err; echo "exit=$? (tier $tier, full check; native sweep flagged nothing the restricted runs could decide)" >> $out/check_$pid.txt)
-fi
-oif [ -n "$hits" ]; then
-  (cd $V && VERIF_ONLY="$hits" python3 check.py $pid --tier $tier > $out/check_$pid.txt 2>$out/check_$pid.err; echo "exit=$? (tier $tier, restricted to the harnesses the native sweep flagged: $hits)" >> $out/check_$pid.txt)
-  if ! grep -q "^VIOLATION" $out/check_$pid.txt && [ "$tier" = quick ]; then
-    # the flagged harnesses may belong to the thorough tier only (larger bounds, slow ones)
-    (cd $V && VERIF_ONLY="$hits" python3 check.py $pid --tier thorough > $out/check_${pid}_thorough.txt 2>$out/check_${pid}_thorough.err; echo "exit=$? (tier thorough, restricted to the harnesses the native sweep flagged: $hits)" >> $out/check_${pid}_thorough.txt)
-    if grep -q "^VIOLATION" $out/check_${pid}_thorough.txt; then cp $out/check_${pid}_thorough.txt $out/check_$pid.txt; fi
-  fi
-fi
-if [ -z "$hits" ] || { ! grep -q "^VIOLATION" $out/check_$pid.txt && grep -q "no obligation was generated" $out/check_$pid.txt; }; then
-  (cd $V && python3 check.py $pid --tier $tier > $out/check_$pid.txt 2>$out/check_$pid.err; echo "exit=$? (tier $tier, full check; native sweep flagged nothing the restricted runs could decide)" >> $out/check_$pid.txt)
-fi
-uif [ -n "$hits" ]; then
-  (cd $V && VERIF_ONLY="$hits" python3 check.py $pid --tier $tier > $out/check_$pid.txt 2>$out/check_$pid.err; echo "exit=$? (tier $tier, restricted to the harnesses the native sweep flagged: $hits)" >> $out/check_$pid.txt)
-  if ! grep -q "^VIOLATION" $out/check_$pid.txt && [ "$tier" = quick ]; then
-    # the flagged harnesses may belong to the thorough tier only (larger bounds, slow ones)
-    (cd $V && VERIF_ONLY="$hits" python3 check.py $pid --tier thorough > $out/check_${pid}_thorough.txt 2>$out/check_${pid}_thorough.err; echo "exit=$? (tier thorough, restricted to the harnesses the native sweep flagged: $hits)" >> $out/check_${pid}_thorough.txt)
-    if grep -q "^VIOLATION" $out/check_${pid}_thorough.txt; then cp $out/check_${pid}_thorough.txt $out/check_$pid.txt; fi
-  fi
-fi
-if [ -z "$hits" ] || { ! grep -q "^VIOLATION" $out/check_$pid.txt && grep -q "no obligation was generated" $out/check_$pid.txt; }; then
-  (cd $V && python3 check.py $pid --tier $tier > $out/check_$pid.txt 2>$out/check_$pid.err; echo "exit=$? (tier $tier, full check; native sweep flagged nothing the restricted runs could decide)" >> $out/check_$pid.txt)
-fi
-tif [ -n "$hits" ]; then
-  (cd $V && VERIF_ONLY="$hits" python3 check.py $pid --tier $tier > $out/check_$pid.txt 2>$out/check_$pid.err; echo "exit=$? (tier $tier, restricted to the harnesses the native sweep flagged: $hits)" >> $out/check_$pid.txt)
-  if ! grep -q "^VIOLATION" $out/check_$pid.txt && [ "$tier" = quick ]; then
-    # the flagged harnesses may belong to the thorough tier only (larger bounds, slow ones)
-    (cd $V && VERIF_ONLY="$hits" python3 check.py $pid --tier thorough > $out/check_${pid}_thorough.txt 2>$out/check_${pid}_thorough.err; echo "exit=$? (tier thorough, restricted to the harnesses the native sweep flagged: $hits)" >> $out/check_${pid}_thorough.txt)
-    if grep -q "^VIOLATION" $out/check_${pid}_thorough.txt; then cp $out/check_${pid}_thorough.txt $out/check_$pid.txt; fi
-  fi
-fi
-if [ -z "$hits" ] || { ! grep -q "^VIOLATION" $out/check_$pid.txt && grep -q "no obligation was generated" $out/check_$pid.txt; }; then
-  (cd $V && python3 check.py $pid --tier $tier > $out/check_$pid.txt 2>$out/check_$pid.err; echo "exit=$? (tier $tier, full check; native sweep flagged nothing the restricted runs could decide)" >> $out/check_$pid.txt)
-fi
-/if [ -n "$hits" ]; then
-  (cd $V && VERIF_ONLY="$hits" python3 check.py $pid --tier $tier > $out/check_$pid.txt 2>$out/check_$pid.err; echo "exit=$? (tier $tier, restricted to the harnesses the native sweep flagged: $hits)" >> $out/check_$pid.txt)
-  if ! grep -q "^VIOLATION" $out/check_$pid.txt && [ "$tier" = quick ]; then
-    # the flagged harnesses may belong to the thorough tier only (larger bounds, slow ones)
-    (cd $V && VERIF_ONLY="$hits" python3 check.py $pid --tier thorough > $out/check_${pid}_thorough.txt 2>$out/check_${pid}_thorough.err; echo "exit=$? (tier thorough, restricted to the harnesses the native sweep flagged: $hits)" >> $out/check_${pid}_thorough.txt)
-    if grep -q "^VIOLATION" $out/check_${pid}_thorough.txt; then cp $out/check_${pid}_thorough.txt $out/check_$pid.txt; fi
-  fi
-fi
-if [ -z "$hits" ] || { ! grep -q "^VIOLATION" $out/check_$pid.txt && grep -q "no obligation was generated" $out/check_$pid.txt; }; then
-  (cd $V && python3 check.py $pid --tier $tier > $out/check_$pid.txt 2>$out/check_$pid.err; echo "exit=$? (tier $tier, full check; native sweep flagged nothing the restricted runs could decide)" >> $out/check_$pid.txt)
-fi
-cif [ -n "$hits" ]; then
-  (cd $V && VERIF_ONLY="$hits" python3 check.py $pid --tier $tier > $out/check_$pid.txt 2>$out/check_$pid.err; echo "exit=$? (tier $tier, restricted to the harnesses the native sweep flagged: $hits)" >> $out/check_$pid.txt)
-  if ! grep -q "^VIOLATION" $out/check_$pid.txt && [ "$tier" = quick ]; then
-    # the flagged harnesses may belong to the thorough tier only (larger bounds, slow ones)
-    (cd $V && VERIF_ONLY="$hits" python3 check.py $pid --tier thorough > $out/check_${pid}_thorough.txt 2>$out/check_${pid}_thorough.err; echo "exit=$? (tier thorough, restricted to the harnesses the native sweep flagged: $hits)" >> $out/check_${pid}_thorough.txt)
-    if grep -q "^VIOLATION" $out/check_${pid}_thorough.txt; then cp $out/check_${pid}_thorough.txt $out/check_$pid.txt; fi
-  fi
-fi
-if [ -z "$hits" ] || { ! grep -q "^VIOLATION" $out/check_$pid.txt && grep -q "no obligation was generated" $out/check_$pid.txt; }; then
-  (cd $V && python3 check.py $pid --tier $tier > $out/check_$pid.txt 2>$out/check_$pid.err; echo "exit=$? (tier $tier, full check; native sweep flagged nothing the restricted runs could decide)" >> $out/check_$pid.txt)
-fi
-hif [ -n "$hits" ]; then
-  (cd $V && VERIF_ONLY="$hits" python3 check.py $pid --tier $tier > $out/check_$pid.txt 2>$out/check_$pid.err; echo "exit=$? (tier $tier, restricted to the harnesses the native sweep flagged: $hits)" >> $out/check_$pid.txt)
-  if ! grep -q "^VIOLATION" $out/check_$pid.txt && [ "$tier" = quick ]; then
-    # the flagged harnesses may belong to the thorough tier only (larger bounds, slow ones)
-    (cd $V && VERIF_ONLY="$hits" python3 check.py $pid --tier thorough > $out/check_${pid}_thorough.txt 2>$out/check_${pid}_thorough.err; echo "exit=$? (tier thorough, restricted to the harnesses the native sweep flagged: $hits)" >> $out/check_${pid}_thorough.txt)
-    if grep -q "^VIOLATION" $out/check_${pid}_thorough.txt; then cp $out/check_${pid}_thorough.txt $out/check_$pid.txt; fi
-  fi
-fi
-if [ -z "$hits" ] || { ! grep -q "^VIOLATION" $out/check_$pid.txt && grep -q "no obligation was generated" $out/check_$pid.txt; }; then
-  (cd $V && python3 check.py $pid --tier $tier > $out/check_$pid.txt 2>$out/check_$pid.err; echo "exit=$? (tier $tier, full check; native sweep flagged nothing the restricted runs could decide)" >> $out/check_$pid.txt)
-fi
-eif [ -n "$hits" ]; then
-  (cd $V && VERIF_ONLY="$hits" python3 check.py $pid --tier $tier > $out/check_$pid.txt 2>$out/check_$pid.err; echo "exit=$? (tier $tier, restricted to the harnesses the native sweep flagged: $hits)" >> $out/check_$pid.txt)
-  if ! grep -q "^VIOLATION" $out/check_$pid.txt && [ "$tier" = quick ]; then
-    # the flagged harnesses may belong to the thorough tier only (larger bounds, slow ones)
-    (cd $V && VERIF_ONLY="$hits" python3 check.py $pid --tier thorough > $out/check_${pid}_thorough.txt 2>$out/check_${pid}_thorough.err; echo "exit=$? (tier thorough, restricted to the harnesses the native sweep flagged: $hits)" >> $out/check_${pid}_thorough.txt)
-    if grep -q "^VIOLATION" $out/check_${pid}_thorough.txt; then cp $out/check_${pid}_thorough.txt $out/check_$pid.txt; fi
-  fi
-fi
-if [ -z "$hits" ] || { ! grep -q "^VIOLATION" $out/check_$pid.txt && grep -q "no obligation was generated" $out/check_$pid.txt; }; then
-  (cd $V && python3 check.py $pid --tier $tier > $out/check_$pid.txt 2>$out/check_$pid.err; echo "exit=$? (tier $tier, full check; native sweep flagged nothing the restricted runs could decide)" >> $out/check_$pid.txt)
-fi
-cif [ -n "$hits" ]; then
-  (cd $V && VERIF_ONLY="$hits" python3 check.py $pid --tier $tier > $out/check_$pid.txt 2>$out/check_$pid.err; echo "exit=$? (tier $tier, restricted to the harnesses the native sweep flagged: $hits)" >> $out/check_$pid.txt)
-  if ! grep -q "^VIOLATION" $out/check_$pid.txt && [ "$tier" = quick ]; then
-    # the flagged harnesses may belong to the thorough tier only (larger bounds, slow ones)
-    (cd $V && VERIF_ONLY="$hits" python3 check.py $pid --tier thorough > $out/check_${pid}_thorough.txt 2>$out/check_${pid}_thorough.err; echo "exit=$? (tier thorough, restricted to the harnesses the native sweep flagged: $hits)" >> $out/check_${pid}_thorough.txt)
-    if grep -q "^VIOLATION" $out/check_${pid}_thorough.txt; then cp $out/check_${pid}_thorough.txt $out/check_$pid.txt; fi
-  fi
-fi
-if [ -z "$hits" ] || { ! grep -q "^VIOLATION" $out/check_$pid.txt && grep -q "no obligation was generated" $out/check_$pid.txt; }; then
-  (cd $V && python3 check.py $pid --tier $tier > $out/check_$pid.txt 2>$out/check_$pid.err; echo "exit=$? (tier $tier, full check; native sweep flagged nothing the restricted runs could decide)" >> $out/check_$pid.txt)
-fi
-kif [ -n "$hits" ]; then
-  (cd $V && VERIF_ONLY="$hits" python3 check.py $pid --tier $tier > $out/check_$pid.txt 2>$out/check_$pid.err; echo "exit=$? (tier $tier, restricted to the harnesses the native sweep flagged: $hits)" >> $out/check_$pid.txt)
-  if ! grep -q "^VIOLATION" $out/check_$pid.txt && [ "$tier" = quick ]; then
-    # the flagged harnesses may belong to the thorough tier only (larger bounds, slow ones)
-    (cd $V && VERIF_ONLY="$hits" python3 check.py $pid --tier thorough > $out/check_${pid}_thorough.txt 2>$out/check_${pid}_thorough.err; echo "exit=$? (tier thorough, restricted to the harnesses the native sweep flagged: $hits)" >> $out/check_${pid}_thorough.txt)
-    if grep -q "^VIOLATION" $out/check_${pid}_thorough.txt; then cp $out/check_${pid}_thorough.txt $out/check_$pid.txt; fi
-  fi
-fi
-if [ -z "$hits" ] || { ! grep -q "^VIOLATION" $out/check_$pid.txt && grep -q "no obligation was generated" $out/check_$pid.txt; }; then
-  (cd $V && python3 check.py $pid --tier $tier > $out/check_$pid.txt 2>$out/check_$pid.err; echo "exit=$? (tier $tier, full check; native sweep flagged nothing the restricted runs could decide)" >> $out/check_$pid.txt)
-fi
-_if [ -n "$hits" ]; then
-  (cd $V && VERIF_ONLY="$hits" python3 check.py $pid --tier $tier > $out/check_$pid.txt 2>$out/check_$pid.err; echo "exit=$? (tier $tier, restricted to the harnesses the native sweep flagged: $hits)" >> $out/check_$pid.txt)
-  if ! grep -q "^VIOLATION" $out/check_$pid.txt && [ "$tier" = quick ]; then
-    # the flagged harnesses may belong to the thorough tier only (larger bounds, slow ones)
-    (cd $V && VERIF_ONLY="$hits" python3 check.py $pid --tier thorough > $out/check_${pid}_thorough.txt 2>$out/check_${pid}_thorough.err; echo "exit=$? (tier thorough, restricted to the harnesses the native sweep flagged: $hits)" >> $out/check_${pid}_thorough.txt)
-    if grep -q "^VIOLATION" $out/check_${pid}_thorough.txt; then cp $out/check_${pid}_thorough.txt $out/check_$pid.txt; fi
-  fi
-fi
-if [ -z "$hits" ] || { ! grep -q "^VIOLATION" $out/check_$pid.txt && grep -q "no obligation was generated" $out/check_$pid.txt; }; then
-  (cd $V && python3 check.py $pid --tier $tier > $out/check_$pid.txt 2>$out/check_$pid.err; echo "exit=$? (tier $tier, full check; native sweep flagged nothing the restricted runs could decide)" >> $out/check_$pid.txt)
-fi
-$if [ -n "$hits" ]; then
-  (cd $V && VERIF_ONLY="$hits" python3 check.py $pid --tier $tier > $out/check_$pid.txt 2>$out/check_$pid.err; echo "exit=$? (tier $tier, restricted to the harnesses the native sweep flagged: $hits)" >> $out/check_$pid.txt)
-  if ! grep -q "^VIOLATION" $out/check_$pid.txt && [ "$tier" = quick ]; then
-    # the flagged harnesses may belong to the thorough tier only (larger bounds, slow ones)
-    (cd $V && VERIF_ONLY="$hits" python3 check.py $pid --tier thorough > $out/check_${pid}_thorough.txt 2>$out/check_${pid}_thorough.err; echo "exit=$? (tier thorough, restricted to the harnesses the native sweep flagged: $hits)" >> $out/check_${pid}_thorough.txt)
-    if grep -q "^VIOLATION" $out/check_${pid}_thorough.txt; then cp $out/check_${pid}_thorough.txt $out/check_$pid.txt; fi
-  fi
-fi
-if [ -z "$hits" ] || { ! grep -q "^VIOLATION" $out/check_$pid.txt && grep -q "no obligation was generated" $out/check_$pid.txt; }; then
-  (cd $V && python3 check.py $pid --tier $tier > $out/check_$pid.txt 2>$out/check_$pid.err; echo "exit=$? (tier $tier, full check; native sweep flagged nothing the restricted runs could decide)" >> $out/check_$pid.txt)
-fi
-pif [ -n "$hits" ]; then
-  (cd $V && VERIF_ONLY="$hits" python3 check.py $pid --tier $tier > $out/check_$pid.txt 2>$out/check_$pid.err; echo "exit=$? (tier $tier, restricted to the harnesses the native sweep flagged: $hits)" >> $out/check_$pid.txt)
-  if ! grep -q "^VIOLATION" $out/check_$pid.txt && [ "$tier" = quick ]; then
-    # the flagged harnesses may belong to the thorough tier only (larger bounds, slow ones)
-    (cd $V && VERIF_ONLY="$hits" python3 check.py $pid --tier thorough > $out/check_${pid}_thorough.txt 2>$out/check_${pid}_thorough.err; echo "exit=$? (tier thorough, restricted to the harnesses the native sweep flagged: $hits)" >> $out/check_${pid}_thorough.txt)
-    if grep -q "^VIOLATION" $out/check_${pid}_thorough.txt; then cp $out/check_${pid}_thorough.txt $out/check_$pid.txt; fi
-  fi
-fi
-if [ -z "$hits" ] || { ! grep -q "^VIOLATION" $out/check_$pid.txt && grep -q "no obligation was generated" $out/check_$pid.txt; }; then
-  (cd $V && python3 check.py $pid --tier $tier > $out/check_$pid.txt 2>$out/check_$pid.err; echo "exit=$? (tier $tier, full check; native sweep flagged nothing the restricted runs could decide)" >> $out/check_$pid.txt)
-fi
-iif [ -n "$hits" ]; then
-  (cd $V && VERIF_ONLY="$hits" python3 check.py $pid --tier $tier > $out/check_$pid.txt 2>$out/check_$pid.err; echo "exit=$? (tier $tier, restricted to the harnesses the native sweep flagged: $hits)" >> $out/check_$pid.txt)
-  if ! grep -q "^VIOLATION" $out/check_$pid.txt && [ "$tier" = quick ]; then
-    # the flagged harnesses may belong to the thorough tier only (larger bounds, slow ones)
-    (cd $V && VERIF_ONLY="$hits" python3 check.py $pid --tier thorough > $out/check_${pid}_thorough.txt 2>$out/check_${pid}_thorough.err; echo "exit=$? (tier thorough, restricted to the harnesses the native sweep flagged: $hits)" >> $out/check_${pid}_thorough.txt)
-    if grep -q "^VIOLATION" $out/check_${pid}_thorough.txt; then cp $out/check_${pid}_thorough.txt $out/check_$pid.txt; fi
-  fi
-fi
-if [ -z "$hits" ] || { ! grep -q "^VIOLATION" $out/check_$pid.txt && grep -q "no obligation was generated" $out/check_$pid.txt; }; then
-  (cd $V && python3 check.py $pid --tier $tier > $out/check_$pid.txt 2>$out/check_$pid.err; echo "exit=$? (tier $tier, full check; native sweep flagged nothing the restricted runs could decide)" >> $out/check_$pid.txt)
-fi
-dif [ -n "$hits" ]; then
-  (cd $V && VERIF_ONLY="$hits" python3 check.py $pid --tier $tier > $out/check_$pid.txt 2>$out/check_$pid.err; echo "exit=$? (tier $tier, restricted to the harnesses the native sweep flagged: $hits)" >> $out/check_$pid.txt)
-  if ! grep -q "^VIOLATION" $out/check_$pid.txt && [ "$tier" = quick ]; then
-    # the flagged harnesses may belong to the thorough tier only (larger bounds, slow ones)
-    (cd $V && VERIF_ONLY="$hits" python3 check.py $pid --tier thorough > $out/check_${pid}_thorough.txt 2>$out/check_${pid}_thorough.err; echo "exit=$? (tier thorough, restricted to the harnesses the native sweep flagged: $hits)" >> $out/check_${pid}_thorough.txt)
-    if grep -q "^VIOLATION" $out/check_${pid}_thorough.txt; then cp $out/check_${pid}_thorough.txt $out/check_$pid.txt; fi
-  fi
-fi
-if [ -z "$hits" ] || { ! grep -q "^VIOLATION" $out/check_$pid.txt && grep -q "no obligation was generated" $out/check_$pid.txt; }; then
-  (cd $V && python3 check.py $pid --tier $tier > $out/check_$pid.txt 2>$out/check_$pid.err; echo "exit=$? (tier $tier, full check; native sweep flagged nothing the restricted runs could decide)" >> $out/check_$pid.txt)
-fi
-.if [ -n "$hits" ]; then
-  (cd $V && VERIF_ONLY="$hits" python3 check.py $pid --tier $tier > $out/check_$pid.txt 2>$out/check_$pid.err; echo "exit=$? (tier $tier, restricted to the harnesses the native sweep flagged: $hits)" >> $out/check_$pid.txt)
-  if ! grep -q "^VIOLATION" $out/check_$pid.txt && [ "$tier" = quick ]; then
-    # the flagged harnesses may belong to the thorough tier only (larger bounds, slow ones)
-    (cd $V && VERIF_ONLY="$hits" python3 check.py $pid --tier thorough > $out/check_${pid}_thorough.txt 2>$out/check_${pid}_thorough.err; echo "exit=$? (tier thorough, restricted to the harnesses the native sweep flagged: $hits)" >> $out/check_${pid}_thorough.txt)
-    if grep -q "^VIOLATION" $out/check_${pid}_thorough.txt; then cp $out/check_${pid}_thorough.txt $out/check_$pid.txt; fi
-  fi
-fi
-if [ -z "$hits" ] || { ! grep -q "^VIOLATION" $out/check_$pid.txt && grep -q "no obligation was generated" $out/check_$pid.txt; }; then
-  (cd $V && python3 check.py $pid --tier $tier > $out/check_$pid.txt 2>$out/check_$pid.err; echo "exit=$? (tier $tier, full check; native sweep flagged nothing the restricted runs could decide)" >> $out/check_$pid.txt)
-fi
-tif [ -n "$hits" ]; then
-  (cd $V && VERIF_ONLY="$hits" python3 check.py $pid --tier $tier > $out/check_$pid.txt 2>$out/check_$pid.err; echo "exit=$? (tier $tier, restricted to the harnesses the native sweep flagged: $hits)" >> $out/check_$pid.txt)
-  if ! grep -q "^VIOLATION" $out/check_$pid.txt && [ "$tier" = quick ]; then
-    # the flagged harnesses may belong to the thorough tier only (larger bounds, slow ones)
-    (cd $V && VERIF_ONLY="$hits" python3 check.py $pid --tier thorough > $out/check_${pid}_thorough.txt 2>$out/check_${pid}_thorough.err; echo "exit=$? (tier thorough, restricted to the harnesses the native sweep flagged: $hits)" >> $out/check_${pid}_thorough.txt)
-    if grep -q "^VIOLATION" $out/check_${pid}_thorough.txt; then cp $out/check_${pid}_thorough.txt $out/check_$pid.txt; fi
-  fi
-fi
-if [ -z "$hits" ] || { ! grep -q "^VIOLATION" $out/check_$pid.txt && grep -q "no obligation was generated" $out/check_$pid.txt; }; then
-  (cd $V && python3 check.py $pid --tier $tier > $out/check_$pid.txt 2>$out/check_$pid.err; echo "exit=$? (tier $tier, full check; native sweep flagged nothing the restricted runs could decide)" >> $out/check_$pid.txt)
-fi
-xif [ -n "$hits" ]; then
-  (cd $V && VERIF_ONLY="$hits" python3 check.py $pid --tier $tier > $out/check_$pid.txt 2>$out/check_$pid.err; echo "exit=$? (tier $tier, restricted to the harnesses the native sweep flagged: $hits)" >> $out/check_$pid.txt)
-  if ! grep -q "^VIOLATION" $out/check_$pid.txt && [ "$tier" = quick ]; then
-    # the flagged harnesses may belong to the thorough tier only (larger bounds, slow ones)
-    (cd $V && VERIF_ONLY="$hits" python3 check.py $pid --tier thorough > $out/check_${pid}_thorough.txt 2>$out/check_${pid}_thorough.err; echo "exit=$? (tier thorough, restricted to the harnesses the native sweep flagged: $hits)" >> $out/check_${pid}_thorough.txt)
-    if grep -q "^VIOLATION" $out/check_${pid}_thorough.txt; then cp $out/check_${pid}_thorough.txt $out/check_$pid.txt; fi
-  fi
-fi
-if [ -z "$hits" ] || { ! grep -q "^VIOLATION" $out/check_$pid.txt && grep -q "no obligation was generated" $out/check_$pid.txt; }; then
-  (cd $V && python3 check.py $pid --tier $tier > $out/check_$pid.txt 2>$out/check_$pid.err; echo "exit=$? (tier $tier, full check; native sweep flagged nothing the restricted runs could decide)" >> $out/check_$pid.txt)
-fi
-tif [ -n "$hits" ]; then
-  (cd $V && VERIF_ONLY="$hits" python3 check.py $pid --tier $tier > $out/check_$pid.txt 2>$out/check_$pid.err; echo "exit=$? (tier $tier, restricted to the harnesses the native sweep flagged: $hits)" >> $out/check_$pid.txt)
-  if ! grep -q "^VIOLATION" $out/check_$pid.txt && [ "$tier" = quick ]; then
-    # the flagged harnesses may belong to the thorough tier only (larger bounds, slow ones)
-    (cd $V && VERIF_ONLY="$hits" python3 check.py $pid --tier thorough > $out/check_${pid}_thorough.txt 2>$out/check_${pid}_thorough.err; echo "exit=$? (tier thorough, restricted to the harnesses the native sweep flagged: $hits)" >> $out/check_${pid}_thorough.txt)
-    if grep -q "^VIOLATION" $out/check_${pid}_thorough.txt; then cp $out/check_${pid}_thorough.txt $out/check_$pid.txt; fi
-  fi
-fi
-if [ -z "$hits" ] || { ! grep -q "^VIOLATION" $out/check_$pid.txt && grep -q "no obligation was generated" $out/check_$pid.txt; }; then
-  (cd $V && python3 check.py $pid --tier $tier > $out/check_$pid.txt 2>$out/check_$pid.err; echo "exit=$? (tier $tier, full check; native sweep flagged nothing the restricted runs could decide)" >> $out/check_$pid.txt)
-fi
- if [ -n "$hits" ]; then
-  (cd $V && VERIF_ONLY="$hits" python3 check.py $pid --tier $tier > $out/check_$pid.txt 2>$out/check_$pid.err; echo "exit=$? (tier $tier, restricted to the harnesses the native sweep flagged: $hits)" >> $out/check_$pid.txt)
-  if ! grep -q "^VIOLATION" $out/check_$pid.txt && [ "$tier" = quick ]; then
-    # the flagged harnesses may belong to the thorough tier only (larger bounds, slow ones)
-    (cd $V && VERIF_ONLY="$hits" python3 check.py $pid --tier thorough > $out/check_${pid}_thorough.txt 2>$out/check_${pid}_thorough.err; echo "exit=$? (tier thorough, restricted to the harnesses the native sweep flagged: $hits)" >> $out/check_${pid}_thorough.txt)
-    if grep -q "^VIOLATION" $out/check_${pid}_thorough.txt; then cp $out/check_${pid}_thorough.txt $out/check_$pid.txt; fi
-  fi
-fi
-if [ -z "$hits" ] || { ! grep -q "^VIOLATION" $out/check_$pid.txt && grep -q "no obligation was generated" $out/check_$pid.txt; }; then
-  (cd $V && python3 check.py $pid --tier $tier > $out/check_$pid.txt 2>$out/check_$pid.err; echo "exit=$? (tier $tier, full check; native sweep flagged nothing the restricted runs could decide)" >> $out/check_$pid.txt)
-fi
-2if [ -n "$hits" ]; then
-  (cd $V && VERIF_ONLY="$hits" python3 check.py $pid --tier $tier > $out/check_$pid.txt 2>$out/check_$pid.err; echo "exit=$? (tier $tier, restricted to the harnesses the native sweep flagged: $hits)" >> $out/check_$pid.txt)
-  if ! grep -q "^VIOLATION" $out/check_$pid.txt && [ "$tier" = quick ]; then
-    # the flagged harnesses may belong to the thorough tier only (larger bounds, slow ones)
-    (cd $V && VERIF_ONLY="$hits" python3 check.py $pid --tier thorough > $out/check_${pid}_thorough.txt 2>$out/check_${pid}_thorough.err; echo "exit=$? (tier thorough, restricted to the harnesses the native sweep flagged: $hits)" >> $out/check_${pid}_thorough.txt)
-    if grep -q "^VIOLATION" $out/check_${pid}_thorough.txt; then cp $out/check_${pid}_thorough.txt $out/check_$pid.txt; fi
-  fi
-fi
-if [ -z "$hits" ] || { ! grep -q "^VIOLATION" $out/check_$pid.txt && grep -q "no obligation was generated" $out/check_$pid.txt; }; then
-  (cd $V && python3 check.py $pid --tier $tier > $out/check_$pid.txt 2>$out/check_$pid.err; echo "exit=$? (tier $tier, full check; native sweep flagged nothing the restricted runs could decide)" >> $out/check_$pid.txt)
-fi
->if [ -n "$hits" ]; then
-  (cd $V && VERIF_ONLY="$hits" python3 check.py $pid --tier $tier > $out/check_$pid.txt 2>$out/check_$pid.err; echo "exit=$? (tier $tier, restricted to the harnesses the native sweep flagged: $hits)" >> $out/check_$pid.txt)
-  if ! grep -q "^VIOLATION" $out/check_$pid.txt && [ "$tier" = quick ]; then
-    # the flagged harnesses may belong to the thorough tier only (larger bounds, slow ones)
-    (cd $V && VERIF_ONLY="$hits" python3 check.py $pid --tier thorough > $out/check_${pid}_thorough.txt 2>$out/check_${pid}_thorough.err; echo "exit=$? (tier thorough, restricted to the harnesses the native sweep flagged: $hits)" >> $out/check_${pid}_thorough.txt)
-    if grep -q "^VIOLATION" $out/check_${pid}_thorough.txt; then cp $out/check_${pid}_thorough.txt $out/check_$pid.txt; fi
-  fi
-fi
-if [ -z "$hits" ] || { ! grep -q "^VIOLATION" $out/check_$pid.txt && grep -q "no obligation was generated" $out/check_$pid.txt; }; then
-  (cd $V && python3 check.py $pid --tier $tier > $out/check_$pid.txt 2>$out/check_$pid.err; echo "exit=$? (tier $tier, full check; native sweep flagged nothing the restricted runs could decide)" >> $out/check_$pid.txt)
-fi
-$if [ -n "$hits" ]; then
-  (cd $V && VERIF_ONLY="$hits" python3 check.py $pid --tier $tier > $out/check_$pid.txt 2>$out/check_$pid.err; echo "exit=$? (tier $tier, restricted to the harnesses the native sweep flagged: $hits)" >> $out/check_$pid.txt)
-  if ! grep -q "^VIOLATION" $out/check_$pid.txt && [ "$tier" = quick ]; then
-    # the flagged harnesses may belong to the thorough tier only (larger bounds, slow ones)
-    (cd $V && VERIF_ONLY="$hits" python3 check.py $pid --tier thorough > $out/check_${pid}_thorough.txt 2>$out/check_${pid}_thorough.err; echo "exit=$? (tier thorough, restricted to the harnesses the native sweep flagged: $hits)" >> $out/check_${pid}_thorough.txt)
-    if grep -q "^VIOLATION" $out/check_${pid}_thorough.txt; then cp $out/check_${pid}_thorough.txt $out/check_$pid.txt; fi
-  fi
-fi
-if [ -z "$hits" ] || { ! grep -q "^VIOLATION" $out/check_$pid.txt && grep -q "no obligation was generated" $out/check_$pid.txt; }; then
-  (cd $V && python3 check.py $pid --tier $tier > $out/check_$pid.txt 2>$out/check_$pid.err; echo "exit=$? (tier $tier, full check; native sweep flagged nothing the restricted runs could decide)" >> $out/check_$pid.txt)
-fi
-oif [ -n "$hits" ]; then
-  (cd $V && VERIF_ONLY="$hits" python3 check.py $pid --tier $tier > $out/check_$pid.txt 2>$out/check_$pid.err; echo "exit=$? (tier $tier, restricted to the harnesses the native sweep flagged: $hits)" >> $out/check_$pid.txt)
-  if ! grep -q "^VIOLATION" $out/check_$pid.txt && [ "$tier" = quick ]; then
-    # the flagged harnesses may belong to the thorough tier only (larger bounds, slow ones)
-    (cd $V && VERIF_ONLY="$hits" python3 check.py $pid --tier thorough > $out/check_${pid}_thorough.txt 2>$out/check_${pid}_thorough.err; echo "exit=$? (tier thorough, restricted to the harnesses the native sweep flagged: $hits)" >> $out/check_${pid}_thorough.txt)
-    if grep -q "^VIOLATION" $out/check_${pid}_thorough.txt; then cp $out/check_${pid}_thorough.txt $out/check_$pid.txt; fi
-  fi
-fi
-if [ -z "$hits" ] || { ! grep -q "^VIOLATION" $out/check_$pid.txt && grep -q "no obligation was generated" $out/check_$pid.txt; }; then
-  (cd $V && python3 check.py $pid --tier $tier > $out/check_$pid.txt 2>$out/check_$pid.err; echo "exit=$? (tier $tier, full check; native sweep flagged nothing the restricted runs could decide)" >> $out/check_$pid.txt)
-fi
-uif [ -n "$hits" ]; then
-  (cd $V && VERIF_ONLY="$hits" python3 check.py $pid --tier $tier > $out/check_$pid.txt 2>$out/check_$pid.err; echo "exit=$? (tier $tier, restricted to the harnesses the native sweep flagged: $hits)" >> $out/check_$pid.txt)
-  if ! grep -q "^VIOLATION" $out/check_$pid.txt && [ "$tier" = quick ]; then
-    # the flagged harnesses may belong to the thorough tier only (larger bounds, slow ones)
-    (cd $V && VERIF_ONLY="$hits" python3 check.py $pid --tier thorough > $out/check_${pid}_thorough.txt 2>$out/check_${pid}_thorough.err; echo "exit=$? (tier thorough, restricted to the harnesses the native sweep flagged: $hits)" >> $out/check_${pid}_thorough.txt)
-    if grep -q "^VIOLATION" $out/check_${pid}_thorough.txt; then cp $out/check_${pid}_thorough.txt $out/check_$pid.txt; fi
-  fi
-fi
-if [ -z "$hits" ] || { ! grep -q "^VIOLATION" $out/check_$pid.txt && grep -q "no obligation was generated" $out/check_$pid.txt; }; then
-  (cd $V && python3 check.py $pid --tier $tier > $out/check_$pid.txt 2>$out/check_$pid.err; echo "exit=$? (tier $tier, full check; native sweep flagged nothing the restricted runs could decide)" >> $out/check_$pid.txt)
-fi
-tif [ -n "$hits" ]; then
-  (cd $V && VERIF_ONLY="$hits" python3 check.py $pid --tier $tier > $out/check_$pid.txt 2>$out/check_$pid.err; echo "exit=$? (tier $tier, restricted to the harnesses the native sweep flagged: $hits)" >> $out/check_$pid.txt)
-  if ! grep -q "^VIOLATION" $out/check_$pid.txt && [ "$tier" = quick ]; then
-    # the flagged harnesses may belong to the thorough tier only (larger bounds, slow ones)
-    (cd $V && VERIF_ONLY="$hits" python3 check.py $pid --tier thorough > $out/check_${pid}_thorough.txt 2>$out/check_${pid}_thorough.err; echo "exit=$? (tier thorough, restricted to the harnesses the native sweep flagged: $hits)" >> $out/check_${pid}_thorough.txt)
-    if grep -q "^VIOLATION" $out/check_${pid}_thorough.txt; then cp $out/check_${pid}_thorough.txt $out/check_$pid.txt; fi
-  fi
-fi
-if [ -z "$hits" ] || { ! grep -q "^VIOLATION" $out/check_$pid.txt && grep -q "no obligation was generated" $out/check_$pid.txt; }; then
-  (cd $V && python3 check.py $pid --tier $tier > $out/check_$pid.txt 2>$out/check_$pid.err; echo "exit=$? (tier $tier, full check; native sweep flagged nothing the restricted runs could decide)" >> $out/check_$pid.txt)
-fi
-/if [ -n "$hits" ]; then
-  (cd $V && VERIF_ONLY="$hits" python3 check.py $pid --tier $tier > $out/check_$pid.txt 2>$out/check_$pid.err; echo "exit=$? (tier $tier, restricted to the harnesses the native sweep flagged: $hits)" >> $out/check_$pid.txt)
-  if ! grep -q "^VIOLATION" $out/check_$pid.txt && [ "$tier" = quick ]; then
-    # the flagged harnesses may belong to the thorough tier only (larger bounds, slow ones)
-    (cd $V && VERIF_ONLY="$hits" python3 check.py $pid --tier thorough > $out/check_${pid}_thorough.txt 2>$out/check_${pid}_thorough.err; echo "exit=$? (tier thorough, restricted to the harnesses the native sweep flagged: $hits)" >> $out/check_${pid}_thorough.txt)
-    if grep -q "^VIOLATION" $out/check_${pid}_thorough.txt; then cp $out/check_${pid}_thorough.txt $out/check_$pid.txt; fi
-  fi
-fi
-if [ -z "$hits" ] || { ! grep -q "^VIOLATION" $out/check_$pid.txt && grep -q "no obligation was generated" $out/check_$pid.txt; }; then
-  (cd $V && python3 check.py $pid --tier $tier > $out/check_$pid.txt 2>$out/check_$pid.err; echo "exit=$? (tier $tier, full check; native sweep flagged nothing the restricted runs could decide)" >> $out/check_$pid.txt)
-fi
-cif [ -n "$hits" ]; then
-  (cd $V && VERIF_ONLY="$hits" python3 check.py $pid --tier $tier > $out/check_$pid.txt 2>$out/check_$pid.err; echo "exit=$? (tier $tier, restricted to the harnesses the native sweep flagged: $hits)" >> $out/check_$pid.txt)
-  if ! grep -q "^VIOLATION" $out/check_$pid.txt && [ "$tier" = quick ]; then
-    # the flagged harnesses may belong to the thorough tier only (larger bounds, slow ones)
-    (cd $V && VERIF_ONLY="$hits" python3 check.py $pid --tier thorough > $out/check_${pid}_thorough.txt 2>$out/check_${pid}_thorough.err; echo "exit=$? (tier thorough, restricted to the harnesses the native sweep flagged: $hits)" >> $out/check_${pid}_thorough.txt)
-    if grep -q "^VIOLATION" $out/check_${pid}_thorough.txt; then cp $out/check_${pid}_thorough.txt $out/check_$pid.txt; fi
-  fi
-fi
-if [ -z "$hits" ] || { ! grep -q "^VIOLATION" $out/check_$pid.txt && grep -q "no obligation was generated" $out/check_$pid.txt; }; then
-  (cd $V && python3 check.py $pid --tier $tier > $out/check_$pid.txt 2>$out/check_$pid.err; echo "exit=$? (tier $tier, full check; native sweep flagged nothing the restricted runs could decide)" >> $out/check_$pid.txt)
-fi
-hif [ -n "$hits" ]; then
-  (cd $V && VERIF_ONLY="$hits" python3 check.py $pid --tier $tier > $out/check_$pid.txt 2>$out/check_$pid.err; echo "exit=$? (tier $tier, restricted to the harnesses the native sweep flagged: $hits)" >> $out/check_$pid.txt)
-  if ! grep -q "^VIOLATION" $out/check_$pid.txt && [ "$tier" = quick ]; then
-    # the flagged harnesses may belong to the thorough tier only (larger bounds, slow ones)
-    (cd $V && VERIF_ONLY="$hits" python3 check.py $pid --tier thorough > $out/check_${pid}_thorough.txt 2>$out/check_${pid}_thorough.err; echo "exit=$? (tier thorough, restricted to the harnesses the native sweep flagged: $hits)" >> $out/check_${pid}_thorough.txt)
-    if grep -q "^VIOLATION" $out/check_${pid}_thorough.txt; then cp $out/check_${pid}_thorough.txt $out/check_$pid.txt; fi
-  fi
-fi
-if [ -z "$hits" ] || { ! grep -q "^VIOLATION" $out/check_$pid.txt && grep -q "no obligation was generated" $out/check_$pid.txt; }; then
-  (cd $V && python3 check.py $pid --tier $tier > $out/check_$pid.txt 2>$out/check_$pid.err; echo "exit=$? (tier $tier, full check; native sweep flagged nothing the restricted runs could decide)" >> $out/check_$pid.txt)
-fi
-eif [ -n "$hits" ]; then
-  (cd $V && VERIF_ONLY="$hits" python3 check.py $pid --tier $tier > $out/check_$pid.txt 2>$out/check_$pid.err; echo "exit=$? (tier $tier, restricted to the harnesses the native sweep flagged: $hits)" >> $out/check_$pid.txt)
-  if ! grep -q "^VIOLATION" $out/check_$pid.txt && [ "$tier" = quick ]; then
-    # the flagged harnesses may belong to the thorough tier only (larger bounds, slow ones)
-    (cd $V && VERIF_ONLY="$hits" python3 check.py $pid --tier thorough > $out/check_${pid}_thorough.txt 2>$out/check_${pid}_thorough.err; echo "exit=$? (tier thorough, restricted to the harnesses the native sweep flagged: $hits)" >> $out/check_${pid}_thorough.txt)
-    if grep -q "^VIOLATION" $out/check_${pid}_thorough.txt; then cp $out/check_${pid}_thorough.txt $out/check_$pid.txt; fi
-  fi
-fi
-if [ -z "$hits" ] || { ! grep -q "^VIOLATION" $out/check_$pid.txt && grep -q "no obligation was generated" $out/check_$pid.txt; }; then
-  (cd $V && python3 check.py $pid --tier $tier > $out/check_$pid.txt 2>$out/check_$pid.err; echo "exit=$? (tier $tier, full check; native sweep flagged nothing the restricted runs could decide)" >> $out/check_$pid.txt)
-fi
-cif [ -n "$hits" ]; then
-  (cd $V && VERIF_ONLY="$hits" python3 check.py $pid --tier $tier > $out/check_$pid.txt 2>$out/check_$pid.err; echo "exit=$? (tier $tier, restricted to the harnesses the native sweep flagged: $hits)" >> $out/check_$pid.txt)
-  if ! grep -q "^VIOLATION" $out/check_$pid.txt && [ "$tier" = quick ]; then
-    # the flagged harnesses may belong to the thorough tier only (larger bounds, slow ones)
-    (cd $V && VERIF_ONLY="$hits" python3 check.py $pid --tier thorough > $out/check_${pid}_thorough.txt 2>$out/check_${pid}_thorough.err; echo "exit=$? (tier thorough, restricted to the harnesses the native sweep flagged: $hits)" >> $out/check_${pid}_thorough.txt)
-    if grep -q "^VIOLATION" $out/check_${pid}_thorough.txt; then cp $out/check_${pid}_thorough.txt $out/check_$pid.txt; fi
-  fi
-fi
-if [ -z "$hits" ] || { ! grep -q "^VIOLATION" $out/check_$pid.txt && grep -q "no obligation was generated" $out/check_$pid.txt; }; then
-  (cd $V && python3 check.py $pid --tier $tier > $out/check_$pid.txt 2>$out/check_$pid.err; echo "exit=$? (tier $tier, full check; native sweep flagged nothing the restricted runs could decide)" >> $out/check_$pid.txt)
-fi
-kif [ -n "$hits" ]; then
-  (cd $V && VERIF_ONLY="$hits" python3 check.py $pid --tier $tier > $out/check_$pid.txt 2>$out/check_$pid.err; echo "exit=$? (tier $tier, restricted to the harnesses the native sweep flagged: $hits)" >> $out/check_$pid.txt)
-  if ! grep -q "^VIOLATION" $out/check_$pid.txt && [ "$tier" = quick ]; then
-    # the flagged harnesses may belong to the thorough tier only (larger bounds, slow ones)
-    (cd $V && VERIF_ONLY="$hits" python3 check.py $pid --tier thorough > $out/check_${pid}_thorough.txt 2>$out/check_${pid}_thorough.err; echo "exit=$? (tier thorough, restricted to the harnesses the native sweep flagged: $hits)" >> $out/check_${pid}_thorough.txt)
-    if grep -q "^VIOLATION" $out/check_${pid}_thorough.txt; then cp $out/check_${pid}_thorough.txt $out/check_$pid.txt; fi
-  fi
-fi
-if [ -z "$hits" ] || { ! grep -q "^VIOLATION" $out/check_$pid.txt && grep -q "no obligation was generated" $out/check_$pid.txt; }; then
-  (cd $V && python3 check.py $pid --tier $tier > $out/check_$pid.txt 2>$out/check_$pid.err; echo "exit=$? (tier $tier, full check; native sweep flagged nothing the restricted runs could decide)" >> $out/check_$pid.txt)
-fi
-_if [ -n "$hits" ]; then
-  (cd $V && VERIF_ONLY="$hits" python3 check.py $pid --tier $tier > $out/check_$pid.txt 2>$out/check_$pid.err; echo "exit=$? (tier $tier, restricted to the harnesses the native sweep flagged: $hits)" >> $out/check_$pid.txt)
-  if ! grep -q "^VIOLATION" $out/check_$pid.txt && [ "$tier" = quick ]; then
-    # the flagged harnesses may belong to the thorough tier only (larger bounds, slow ones)
-    (cd $V && VERIF_ONLY="$hits" python3 check.py $pid --tier thorough > $out/check_${pid}_thorough.txt 2>$out/check_${pid}_thorough.err; echo "exit=$? (tier thorough, restricted to the harnesses the native sweep flagged: $hits)" >> $out/check_${pid}_thorough.txt)
-    if grep -q "^VIOLATION" $out/check_${pid}_thorough.txt; then cp $out/check_${pid}_thorough.txt $out/check_$pid.txt; fi
-  fi
-fi
-if [ -z "$hits" ] || { ! grep -q "^VIOLATION" $out/check_$pid.txt && grep -q "no obligation was generated" $out/check_$pid.txt; }; then
-  (cd $V && python3 check.py $pid --tier $tier > $out/check_$pid.txt 2>$out/check_$pid.err; echo "exit=$? (tier $tier, full check; native sweep flagged nothing the restricted runs could decide)" >> $out/check_$pid.txt)
-fi
-$if [ -n "$hits" ]; then
-  (cd $V && VERIF_ONLY="$hits" python3 check.py $pid --tier $tier > $out/check_$pid.txt 2>$out/check_$pid.err; echo "exit=$? (tier $tier, restricted to the harnesses the native sweep flagged: $hits)" >> $out/check_$pid.txt)
-  if ! grep -q "^VIOLATION" $out/check_$pid.txt && [ "$tier" = quick ]; then
-    # the flagged harnesses may belong to the thorough tier only (larger bounds, slow ones)
-    (cd $V && VERIF_ONLY="$hits" python3 check.py $pid --tier thorough > $out/check_${pid}_thorough.txt 2>$out/check_${pid}_thorough.err; echo "exit=$? (tier thorough, restricted to the harnesses the native sweep flagged: $hits)" >> $out/check_${pid}_thorough.txt)
-    if grep -q "^VIOLATION" $out/check_${pid}_thorough.txt; then cp $out/check_${pid}_thorough.txt $out/check_$pid.txt; fi
-  fi
-fi
-if [ -z "$hits" ] || { ! grep -q "^VIOLATION" $out/check_$pid.txt && grep -q "no obligation was generated" $out/check_$pid.txt; }; then
-  (cd $V && python3 check.py $pid --tier $tier > $out/check_$pid.txt 2>$out/check_$pid.err; echo "exit=$? (tier $tier, full check; native sweep flagged nothing the restricted runs could decide)" >> $out/check_$pid.txt)
-fi
-pif [ -n "$hits" ]; then
-  (cd $V && VERIF_ONLY="$hits" python3 check.py $pid --tier $tier > $out/check_$pid.txt 2>$out/check_$pid.err; echo "exit=$? (tier $tier, restricted to the harnesses the native sweep flagged: $hits)" >> $out/check_$pid.txt)
-  if ! grep -q "^VIOLATION" $out/check_$pid.txt && [ "$tier" = quick ]; then
-    # the flagged harnesses may belong to the thorough tier only (larger bounds, slow ones)
-    (cd $V && VERIF_ONLY="$hits" python3 check.py $pid --tier thorough > $out/check_${pid}_thorough.txt 2>$out/check_${pid}_thorough.err; echo "exit=$? (tier thorough, restricted to the harnesses the native sweep flagged: $hits)" >> $out/check_${pid}_thorough.txt)
-    if grep -q "^VIOLATION" $out/check_${pid}_thorough.txt; then cp $out/check_${pid}_thorough.txt $out/check_$pid.txt; fi
-  fi
-fi
-if [ -z "$hits" ] || { ! grep -q "^VIOLATION" $out/check_$pid.txt && grep -q "no obligation was generated" $out/check_$pid.txt; }; then
-  (cd $V && python3 check.py $pid --tier $tier > $out/check_$pid.txt 2>$out/check_$pid.err; echo "exit=$? (tier $tier, full check; native sweep flagged nothing the restricted runs could decide)" >> $out/check_$pid.txt)
-fi
-iif [ -n "$hits" ]; then
-  (cd $V && VERIF_ONLY="$hits" python3 check.py $pid --tier $tier > $out/check_$pid.txt 2>$out/check_$pid.err; echo "exit=$? (tier $tier, restricted to the harnesses the native sweep flagged: $hits)" >> $out/check_$pid.txt)
-  if ! grep -q "^VIOLATION" $out/check_$pid.txt && [ "$tier" = quick ]; then
-    # the flagged harnesses may belong to the thorough tier only (larger bounds, slow ones)
-    (cd $V && VERIF_ONLY="$hits" python3 check.py $pid --tier thorough > $out/check_${pid}_thorough.txt 2>$out/check_${pid}_thorough.err; echo "exit=$? (tier thorough, restricted to the harnesses the native sweep flagged: $hits)" >> $out/check_${pid}_thorough.txt)
-    if grep -q "^VIOLATION" $out/check_${pid}_thorough.txt; then cp $out/check_${pid}_thorough.txt $out/check_$pid.txt; fi
-  fi
-fi
-if [ -z "$hits" ] || { ! grep -q "^VIOLATION" $out/check_$pid.txt && grep -q "no obligation was generated" $out/check_$pid.txt; }; then
-  (cd $V && python3 check.py $pid --tier $tier > $out/check_$pid.txt 2>$out/check_$pid.err; echo "exit=$? (tier $tier, full check; native sweep flagged nothing the restricted runs could decide)" >> $out/check_$pid.txt)
-fi
-dif [ -n "$hits" ]; then
-  (cd $V && VERIF_ONLY="$hits" python3 check.py $pid --tier $tier > $out/check_$pid.txt 2>$out/check_$pid.err; echo "exit=$? (tier $tier, restricted to the harnesses the native sweep flagged: $hits)" >> $out/check_$pid.txt)
-  if ! grep -q "^VIOLATION" $out/check_$pid.txt && [ "$tier" = quick ]; then
-    # the flagged harnesses may belong to the thorough tier only (larger bounds, slow ones)
-    (cd $V && VERIF_ONLY="$hits" python3 check.py $pid --tier thorough > $out/check_${pid}_thorough.txt 2>$out/check_${pid}_thorough.err; echo "exit=$? (tier thorough, restricted to the harnesses the native sweep flagged: $hits)" >> $out/check_${pid}_thorough.txt)
-    if grep -q "^VIOLATION" $out/check_${pid}_thorough.txt; then cp $out/check_${pid}_thorough.txt $out/check_$pid.txt; fi
-  fi
-fi
-if [ -z "$hits" ] || { ! grep -q "^VIOLATION" $out/check_$pid.txt && grep -q "no obligation was generated" $out/check_$pid.txt; }; then
-  (cd $V && python3 check.py $pid --tier $tier > $out/check_$pid.txt 2>$out/check_$pid.err; echo "exit=$? (tier $tier, full check; native sweep flagged nothing the restricted runs could decide)" >> $out/check_$pid.txt)
-fi
-.if [ -n "$hits" ]; then
-  (cd $V && VERIF_ONLY="$hits" python3 check.py $pid --tier $tier > $out/check_$pid.txt 2>$out/check_$pid.err; echo "exit=$? (tier $tier, restricted to the harnesses the native sweep flagged: $hits)" >> $out/check_$pid.txt)
-  if ! grep -q "^VIOLATION" $out/check_$pid.txt && [ "$tier" = quick ]; then
-    # the flagged harnesses may belong to the thorough tier only (larger bounds, slow ones)
-    (cd $V && VERIF_ONLY="$hits" python3 check.py $pid --tier thorough > $out/check_${pid}_thorough.txt 2>$out/check_${pid}_thorough.err; echo "exit=$? (tier thorough, restricted to the harnesses the native sweep flagged: $hits)" >> $out/check_${pid}_thorough.txt)
-    if grep -q "^VIOLATION" $out/check_${pid}_thorough.txt; then cp $out/check_${pid}_thorough.txt $out/check_$pid.txt; fi
-  fi
-fi
-if [ -z "$hits" ] || { ! grep -q "^VIOLATION" $out/check_$pid.txt && grep -q "no obligation was generated" $out/check_$pid.txt; }; then
-  (cd $V && python3 check.py $pid --tier $tier > $out/check_$pid.txt 2>$out/check_$pid.err; echo "exit=$? (tier $tier, full check; native sweep flagged nothing the restricted runs could decide)" >> $out/check_$pid.txt)
-fi
-eif [ -n "$hits" ]; then
-  (cd $V && VERIF_ONLY="$hits" python3 check.py $pid --tier $tier > $out/check_$pid.txt 2>$out/check_$pid.err; echo "exit=$? (tier $tier, restricted to the harnesses the native sweep flagged: $hits)" >> $out/check_$pid.txt)
-  if ! grep -q "^VIOLATION" $out/check_$pid.txt && [ "$tier" = quick ]; then
-    # the flagged harnesses may belong to the thorough tier only (larger bounds, slow ones)
-    (cd $V && VERIF_ONLY="$hits" python3 check.py $pid --tier thorough > $out/check_${pid}_thorough.txt 2>$out/check_${pid}_thorough.err; echo "exit=$? (tier thorough, restricted to the harnesses the native sweep flagged: $hits)" >> $out/check_${pid}_thorough.txt)
-    if grep -q "^VIOLATION" $out/check_${pid}_thorough.txt; then cp $out/check_${pid}_thorough.txt $out/check_$pid.txt; fi
-  fi
-fi
-if [ -z "$hits" ] || { ! grep -q "^VIOLATION" $out/check_$pid.txt && grep -q "no obligation was generated" $out/check_$pid.txt; }; then
-  (cd $V && python3 check.py $pid --tier $tier > $out/check_$pid.txt 2>$out/check_$pid.err; echo "exit=$? (tier $tier, full check; native sweep flagged nothing the restricted runs could decide)" >> $out/check_$pid.txt)
-fi
-rif [ -n "$hits" ]; then
-  (cd $V && VERIF_ONLY="$hits" python3 check.py $pid --tier $tier > $out/check_$pid.txt 2>$out/check_$pid.err; echo "exit=$? (tier $tier, restricted to the harnesses the native sweep flagged: $hits)" >> $out/check_$pid.txt)
-  if ! grep -q "^VIOLATION" $out/check_$pid.txt && [ "$tier" = quick ]; then
-    # the flagged harnesses may belong to the thorough tier only (larger bounds, slow ones)
-    (cd $V && VERIF_ONLY="$hits" python3 check.py $pid --tier thorough > $out/check_${pid}_thorough.txt 2>$out/check_${pid}_thorough.err; echo "exit=$? (tier thorough, restricted to the harnesses the native sweep flagged: $hits)" >> $out/check_${pid}_thorough.txt)
-    if grep -q "^VIOLATION" $out/check_${pid}_thorough.txt; then cp $out/check_${pid}_thorough.txt $out/check_$pid.txt; fi
-  fi
-fi
-if [ -z "$hits" ] || { ! grep -q "^VIOLATION" $out/check_$pid.txt && grep -q "no obligation was generated" $out/check_$pid.txt; }; then
-  (cd $V && python3 check.py $pid --tier $tier > $out/check_$pid.txt 2>$out/check_$pid.err; echo "exit=$? (tier $tier, full check; native sweep flagged nothing the restricted runs could decide)" >> $out/check_$pid.txt)
-fi
-rif [ -n "$hits" ]; then
-  (cd $V && VERIF_ONLY="$hits" python3 check.py $pid --tier $tier > $out/check_$pid.txt 2>$out/check_$pid.err; echo "exit=$? (tier $tier, restricted to the harnesses the native sweep flagged: $hits)" >> $out/check_$pid.txt)
-  if ! grep -q "^VIOLATION" $out/check_$pid.txt && [ "$tier" = quick ]; then
-    # the flagged harnesses may belong to the thorough tier only (larger bounds, slow ones)
-    (cd $V && VERIF_ONLY="$hits" python3 check.py $pid --tier thorough > $out/check_${pid}_thorough.txt 2>$out/check_${pid}_thorough.err; echo "exit=$? (tier thorough, restricted to the harnesses the native sweep flagged: $hits)" >> $out/check_${pid}_thorough.txt)
-    if grep -q "^VIOLATION" $out/check_${pid}_thorough.txt; then cp $out/check_${pid}_thorough.txt $out/check_$pid.txt; fi
-  fi
-fi
-if [ -z "$hits" ] || { ! grep -q "^VIOLATION" $out/check_$pid.txt && grep -q "no obligation was generated" $out/check_$pid.txt; }; then
-  (cd $V && python3 check.py $pid --tier $tier > $out/check_$pid.txt 2>$out/check_$pid.err; echo "exit=$? (tier $tier, full check; native sweep flagged nothing the restricted runs could decide)" >> $out/check_$pid.txt)
-fi
-;if [ -n "$hits" ]; then
-  (cd $V && VERIF_ONLY="$hits" python3 check.py $pid --tier $tier > $out/check_$pid.txt 2>$out/check_$pid.err; echo "exit=$? (tier $tier, restricted to the harnesses the native sweep flagged: $hits)" >> $out/check_$pid.txt)
-  if ! grep -q "^VIOLATION" $out/check_$pid.txt && [ "$tier" = quick ]; then
-    # the flagged harnesses may belong to the thorough tier only (larger bounds, slow ones)
-    (cd $V && VERIF_ONLY="$hits" python3 check.py $pid --tier thorough > $out/check_${pid}_thorough.txt 2>$out/check_${pid}_thorough.err; echo "exit=$? (tier thorough, restricted to the harnesses the native sweep flagged: $hits)" >> $out/check_${pid}_thorough.txt)
-    if grep -q "^VIOLATION" $out/check_${pid}_thorough.txt; then cp $out/check_${pid}_thorough.txt $out/check_$pid.txt; fi
-  fi
-fi
-if [ -z "$hits" ] || { ! grep -q "^VIOLATION" $out/check_$pid.txt && grep -q "no obligation was generated" $out/check_$pid.txt; }; then
-  (cd $V && python3 check.py $pid --tier $tier > $out/check_$pid.txt 2>$out/check_$pid.err; echo "exit=$? (tier $tier, full check; native sweep flagged nothing the restricted runs could decide)" >> $out/check_$pid.txt)
-fi
- if [ -n "$hits" ]; then
-  (cd $V && VERIF_ONLY="$hits" python3 check.py $pid --tier $tier > $out/check_$pid.txt 2>$out/check_$pid.err; echo "exit=$? (tier $tier, restricted to the harnesses the native sweep flagged: $hits)" >> $out/check_$pid.txt)
-  if ! grep -q "^VIOLATION" $out/check_$pid.txt && [ "$tier" = quick ]; then
-    # the flagged harnesses may belong to the thorough tier only (larger bounds, slow ones)
-    (cd $V && VERIF_ONLY="$hits" python3 check.py $pid --tier thorough > $out/check_${pid}_thorough.txt 2>$out/check_${pid}_thorough.err; echo "exit=$? (tier thorough, restricted to the harnesses the native sweep flagged: $hits)" >> $out/check_${pid}_thorough.txt)
-    if grep -q "^VIOLATION" $out/check_${pid}_thorough.txt; then cp $out/check_${pid}_thorough.txt $out/check_$pid.txt; fi
-  fi
-fi
-if [ -z "$hits" ] || { ! grep -q "^VIOLATION" $out/check_$pid.txt && grep -q "no obligation was generated" $out/check_$pid.txt; }; then
-  (cd $V && python3 check.py $pid --tier $tier > $out/check_$pid.txt 2>$out/check_$pid.err; echo "exit=$? (tier $tier, full check; native sweep flagged nothing the restricted runs could decide)" >> $out/check_$pid.txt)
-fi
-eif [ -n "$hits" ]; then
-  (cd $V && VERIF_ONLY="$hits" python3 check.py $pid --tier $tier > $out/check_$pid.txt 2>$out/check_$pid.err; echo "exit=$? (tier $tier, restricted to the harnesses the native sweep flagged: $hits)" >> $out/check_$pid.txt)
-  if ! grep -q "^VIOLATION" $out/check_$pid.txt && [ "$tier" = quick ]; then
-    # the flagged harnesses may belong to the thorough tier only (larger bounds, slow ones)
-    (cd $V && VERIF_ONLY="$hits" python3 check.py $pid --tier thorough > $out/check_${pid}_thorough.txt 2>$out/check_${pid}_thorough.err; echo "exit=$? (tier thorough, restricted to the harnesses the native sweep flagged: $hits)" >> $out/check_${pid}_thorough.txt)
-    if grep -q "^VIOLATION" $out/check_${pid}_thorough.txt; then cp $out/check_${pid}_thorough.txt $out/check_$pid.txt; fi
-  fi
-fi
-if [ -z "$hits" ] || { ! grep -q "^VIOLATION" $out/check_$pid.txt && grep -q "no obligation was generated" $out/check_$pid.txt; }; then
-  (cd $V && python3 check.py $pid --tier $tier > $out/check_$pid.txt 2>$out/check_$pid.err; echo "exit=$? (tier $tier, full check; native sweep flagged nothing the restricted runs could decide)" >> $out/check_$pid.txt)
-fi
-cif [ -n "$hits" ]; then
-  (cd $V && VERIF_ONLY="$hits" python3 check.py $pid --tier $tier > $out/check_$pid.txt 2>$out/check_$pid.err; echo "exit=$? (tier $tier, restricted to the harnesses the native sweep flagged: $hits)" >> $out/check_$pid.txt)
-  if ! grep -q "^VIOLATION" $out/check_$pid.txt && [ "$tier" = quick ]; then
-    # the flagged harnesses may belong to the thorough tier only (larger bounds, slow ones)
-    (cd $V && VERIF_ONLY="$hits" python3 check.py $pid --tier thorough > $out/check_${pid}_thorough.txt 2>$out/check_${pid}_thorough.err; echo "exit=$? (tier thorough, restricted to the harnesses the native sweep flagged: $hits)" >> $out/check_${pid}_thorough.txt)
-    if grep -q "^VIOLATION" $out/check_${pid}_thorough.txt; then cp $out/check_${pid}_thorough.txt $out/check_$pid.txt; fi
-  fi
-fi
-if [ -z "$hits" ] || { ! grep -q "^VIOLATION" $out/check_$pid.txt && grep -q "no obligation was generated" $out/check_$pid.txt; }; then
-  (cd $V && python3 check.py $pid --tier $tier > $out/check_$pid.txt 2>$out/check_$pid.err; echo "exit=$? (tier $tier, full check; native sweep flagged nothing the restricted runs could decide)" >> $out/check_$pid.txt)
-fi
-hif [ -n "$hits" ]; then
-  (cd $V && VERIF_ONLY="$hits" python3 check.py $pid --tier $tier > $out/check_$pid.txt 2>$out/check_$pid.err; echo "exit=$? (tier $tier, restricted to the harnesses the native sweep flagged: $hits)" >> $out/check_$pid.txt)
-  if ! grep -q "^VIOLATION" $out/check_$pid.txt && [ "$tier" = quick ]; then
-    # the flagged harnesses may belong to the thorough tier only (larger bounds, slow ones)
-    (cd $V && VERIF_ONLY="$hits" python3 check.py $pid --tier thorough > $out/check_${pid}_thorough.txt 2>$out/check_${pid}_thorough.err; echo "exit=$? (tier thorough, restricted to the harnesses the native sweep flagged: $hits)" >> $out/check_${pid}_thorough.txt)
-    if grep -q "^VIOLATION" $out/check_${pid}_thorough.txt; then cp $out/check_${pid}_thorough.txt $out/check_$pid.txt; fi
-  fi
-fi
-if [ -z "$hits" ] || { ! grep -q "^VIOLATION" $out/check_$pid.txt && grep -q "no obligation was generated" $out/check_$pid.txt; }; then
-  (cd $V && python3 check.py $pid --tier $tier > $out/check_$pid.txt 2>$out/check_$pid.err; echo "exit=$? (tier $tier, full check; native sweep flagged nothing the restricted runs could decide)" >> $out/check_$pid.txt)
-fi
-oif [ -n "$hits" ]; then
-  (cd $V && VERIF_ONLY="$hits" python3 check.py $pid --tier $tier > $out/check_$pid.txt 2>$out/check_$pid.err; echo "exit=$? (tier $tier, restricted to the harnesses the native sweep flagged: $hits)" >> $out/check_$pid.txt)
-  if ! grep -q "^VIOLATION" $out/check_$pid.txt && [ "$tier" = quick ]; then
-    # the flagged harnesses may belong to the thorough tier only (larger bounds, slow ones)
-    (cd $V && VERIF_ONLY="$hits" python3 check.py $pid --tier thorough > $out/check_${pid}_thorough.txt 2>$out/check_${pid}_thorough.err; echo "exit=$? (tier thorough, restricted to the harnesses the native sweep flagged: $hits)" >> $out/check_${pid}_thorough.txt)
-    if grep -q "^VIOLATION" $out/check_${pid}_thorough.txt; then cp $out/check_${pid}_thorough.txt $out/check_$pid.txt; fi
-  fi
-fi
-if [ -z "$hits" ] || { ! grep -q "^VIOLATION" $out/check_$pid.txt && grep -q "no obligation was generated" $out/check_$pid.txt; }; then
-  (cd $V && python3 check.py $pid --tier $tier > $out/check_$pid.txt 2>$out/check_$pid.err; echo "exit=$? (tier $tier, full check; native sweep flagged nothing the restricted runs could decide)" >> $out/check_$pid.txt)
-fi
- if [ -n "$hits" ]; then
-  (cd $V && VERIF_ONLY="$hits" python3 check.py $pid --tier $tier > $out/check_$pid.txt 2>$out/check_$pid.err; echo "exit=$? (tier $tier, restricted to the harnesses the native sweep flagged: $hits)" >> $out/check_$pid.txt)
-  if ! grep -q "^VIOLATION" $out/check_$pid.txt && [ "$tier" = quick ]; then
-    # the flagged harnesses may belong to the thorough tier only (larger bounds, slow ones)
-    (cd $V && VERIF_ONLY="$hits" python3 check.py $pid --tier thorough > $out/check_${pid}_thorough.txt 2>$out/check_${pid}_thorough.err; echo "exit=$? (tier thorough, restricted to the harnesses the native sweep flagged: $hits)" >> $out/check_${pid}_thorough.txt)
-    if grep -q "^VIOLATION" $out/check_${pid}_thorough.txt; then cp $out/check_${pid}_thorough.txt $out/check_$pid.txt; fi
-  fi
-fi
-if [ -z "$hits" ] || { ! grep -q "^VIOLATION" $out/check_$pid.txt && grep -q "no obligation was generated" $out/check_$pid.txt; }; then
-  (cd $V && python3 check.py $pid --tier $tier > $out/check_$pid.txt 2>$out/check_$pid.err; echo "exit=$? (tier $tier, full check; native sweep flagged nothing the restricted runs could decide)" >> $out/check_$pid.txt)
-fi
-"if [ -n "$hits" ]; then
-  (cd $V && VERIF_ONLY="$hits" python3 check.py $pid --tier $tier > $out/check_$pid.txt 2>$out/check_$pid.err; echo "exit=$? (tier $tier, restricted to the harnesses the native sweep flagged: $hits)" >> $out/check_$pid.txt)
-  if ! grep -q "^VIOLATION" $out/check_$pid.txt && [ "$tier" = quick ]; then
-    # the flagged harnesses may belong to the thorough tier only (larger bounds, slow ones)
-    (cd $V && VERIF_ONLY="$hits" python3 check.py $pid --tier thorough > $out/check_${pid}_thorough.txt 2>$out/check_${pid}_thorough.err; echo "exit=$? (tier thorough, restricted to the harnesses the native sweep flagged: $hits)" >> $out/check_${pid}_thorough.txt)
-    if grep -q "^VIOLATION" $out/check_${pid}_thorough.txt; then cp $out/check_${pid}_thorough.txt $out/check_$pid.txt; fi
-  fi
-fi
-if [ -z "$hits" ] || { ! grep -q "^VIOLATION" $out/check_$pid.txt && grep -q "no obligation was generated" $out/check_$pid.txt; }; then
-  (cd $V && python3 check.py $pid --tier $tier > $out/check_$pid.txt 2>$out/check_$pid.err; echo "exit=$? (tier $tier, full check; native sweep flagged nothing the restricted runs could decide)" >> $out/check_$pid.txt)
-fi
-eif [ -n "$hits" ]; then
-  (cd $V && VERIF_ONLY="$hits" python3 check.py $pid --tier $tier > $out/check_$pid.txt 2>$out/check_$pid.err; echo "exit=$? (tier $tier, restricted to the harnesses the native sweep flagged: $hits)" >> $out/check_$pid.txt)
-  if ! grep -q "^VIOLATION" $out/check_$pid.txt && [ "$tier" = quick ]; then
-    # the flagged harnesses may belong to the thorough tier only (larger bounds, slow ones)
-    (cd $V && VERIF_ONLY="$hits" python3 check.py $pid --tier thorough > $out/check_${pid}_thorough.txt 2>$out/check_${pid}_thorough.err; echo "exit=$? (tier thorough, restricted to the harnesses the native sweep flagged: $hits)" >> $out/check_${pid}_thorough.txt)
-    if grep -q "^VIOLATION" $out/check_${pid}_thorough.txt; then cp $out/check_${pid}_thorough.txt $out/check_$pid.txt; fi
-  fi
-fi
-if [ -z "$hits" ] || { ! grep -q "^VIOLATION" $out/check_$pid.txt && grep -q "no obligation was generated" $out/check_$pid.txt; }; then
-  (cd $V && python3 check.py $pid --tier $tier > $out/check_$pid.txt 2>$out/check_$pid.err; echo "exit=$? (tier $tier, full check; native sweep flagged nothing the restricted runs could decide)" >> $out/check_$pid.txt)
-fi
-xif [ -n "$hits" ]; then
-  (cd $V && VERIF_ONLY="$hits" python3 check.py $pid --tier $tier > $out/check_$pid.txt 2>$out/check_$pid.err; echo "exit=$? (tier $tier, restricted to the harnesses the native sweep flagged: $hits)" >> $out/check_$pid.txt)
-  if ! grep -q "^VIOLATION" $out/check_$pid.txt && [ "$tier" = quick ]; then
-    # the flagged harnesses may belong to the thorough tier only (larger bounds, slow ones)
-    (cd $V && VERIF_ONLY="$hits" python3 check.py $pid --tier thorough > $out/check_${pid}_thorough.txt 2>$out/check_${pid}_thorough.err; echo "exit=$? (tier thorough, restricted to the harnesses the native sweep flagged: $hits)" >> $out/check_${pid}_thorough.txt)
-    if grep -q "^VIOLATION" $out/check_${pid}_thorough.txt; then cp $out/check_${pid}_thorough.txt $out/check_$pid.txt; fi
-  fi
-fi
-if [ -z "$hits" ] || { ! grep -q "^VIOLATION" $out/check_$pid.txt && grep -q "no obligation was generated" $out/check_$pid.txt; }; then
-  (cd $V && python3 check.py $pid --tier $tier > $out/check_$pid.txt 2>$out/check_$pid.err; echo "exit=$? (tier $tier, full check; native sweep flagged nothing the restricted runs could decide)" >> $out/check_$pid.txt)
-fi
-iif [ -n "$hits" ]; then
-  (cd $V && VERIF_ONLY="$hits" python3 check.py $pid --tier $tier > $out/check_$pid.txt 2>$out/check_$pid.err; echo "exit=$? (tier $tier, restricted to the harnesses the native sweep flagged: $hits)" >> $out/check_$pid.txt)
-  if ! grep -q "^VIOLATION" $out/check_$pid.txt && [ "$tier" = quick ]; then
-    # the flagged harnesses may belong to the thorough tier only (larger bounds, slow ones)
-    (cd $V && VERIF_ONLY="$hits" python3 check.py $pid --tier thorough > $out/check_${pid}_thorough.txt 2>$out/check_${pid}_thorough.err; echo "exit=$? (tier thorough, restricted to the harnesses the native sweep flagged: $hits)" >> $out/check_${pid}_thorough.txt)
-    if grep -q "^VIOLATION" $out/check_${pid}_thorough.txt; then cp $out/check_${pid}_thorough.txt $out/check_$pid.txt; fi
-  fi
-fi
-if [ -z "$hits" ] || { ! grep -q "^VIOLATION" $out/check_$pid.txt && grep -q "no obligation was generated" $out/check_$pid.txt; }; then
-  (cd $V && python3 check.py $pid --tier $tier > $out/check_$pid.txt 2>$out/check_$pid.err; echo "exit=$? (tier $tier, full check; native sweep flagged nothing the restricted runs could decide)" >> $out/check_$pid.txt)
-fi
-tif [ -n "$hits" ]; then
-  (cd $V && VERIF_ONLY="$hits" python3 check.py $pid --tier $tier > $out/check_$pid.txt 2>$out/check_$pid.err; echo "exit=$? (tier $tier, restricted to the harnesses the native sweep flagged: $hits)" >> $out/check_$pid.txt)
-  if ! grep -q "^VIOLATION" $out/check_$pid.txt && [ "$tier" = quick ]; then
-    # the flagged harnesses may belong to the thorough tier only (larger bounds, slow ones)
-    (cd $V && VERIF_ONLY="$hits" python3 check.py $pid --tier thorough > $out/check_${pid}_thorough.txt 2>$out/check_${pid}_thorough.err; echo "exit=$? (tier thorough, restricted to the harnesses the native sweep flagged: $hits)" >> $out/check_${pid}_thorough.txt)
-    if grep -q "^VIOLATION" $out/check_${pid}_thorough.txt; then cp $out/check_${pid}_thorough.txt $out/check_$pid.txt; fi
-  fi
-fi
-if [ -z "$hits" ] || { ! grep -q "^VIOLATION" $out/check_$pid.txt && grep -q "no obligation was generated" $out/check_$pid.txt; }; then
-  (cd $V && python3 check.py $pid --tier $tier > $out/check_$pid.txt 2>$out/check_$pid.err; echo "exit=$? (tier $tier, full check; native sweep flagged nothing the restricted runs could decide)" >> $out/check_$pid.txt)
-fi
-=if [ -n "$hits" ]; then
-  (cd $V && VERIF_ONLY="$hits" python3 check.py $pid --tier $tier > $out/check_$pid.txt 2>$out/check_$pid.err; echo "exit=$? (tier $tier, restricted to the harnesses the native sweep flagged: $hits)" >> $out/check_$pid.txt)
-  if ! grep -q "^VIOLATION" $out/check_$pid.txt && [ "$tier" = quick ]; then
-    # the flagged harnesses may belong to the thorough tier only (larger bounds, slow ones)
-    (cd $V && VERIF_ONLY="$hits" python3 check.py $pid --tier thorough > $out/check_${pid}_thorough.txt 2>$out/check_${pid}_thorough.err; echo "exit=$? (tier thorough, restricted to the harnesses the native sweep flagged: $hits)" >> $out/check_${pid}_thorough.txt)
-    if grep -q "^VIOLATION" $out/check_${pid}_thorough.txt; then cp $out/check_${pid}_thorough.txt $out/check_$pid.txt; fi
-  fi
-fi
-if [ -z "$hits" ] || { ! grep -q "^VIOLATION" $out/check_$pid.txt && grep -q "no obligation was generated" $out/check_$pid.txt; }; then
-  (cd $V && python3 check.py $pid --tier $tier > $out/check_$pid.txt 2>$out/check_$pid.err; echo "exit=$? (tier $tier, full check; native sweep flagged nothing the restricted runs could decide)" >> $out/check_$pid.txt)
-fi
-$if [ -n "$hits" ]; then
-  (cd $V && VERIF_ONLY="$hits" python3 check.py $pid --tier $tier > $out/check_$pid.txt 2>$out/check_$pid.err; echo "exit=$? (tier $tier, restricted to the harnesses the native sweep flagged: $hits)" >> $out/check_$pid.txt)
-  if ! grep -q "^VIOLATION" $out/check_$pid.txt && [ "$tier" = quick ]; then
-    # the flagged harnesses may belong to the thorough tier only (larger bounds, slow ones)
-    (cd $V && VERIF_ONLY="$hits" python3 check.py $pid --tier thorough > $out/check_${pid}_thorough.txt 2>$out/check_${pid}_thorough.err; echo "exit=$? (tier thorough, restricted to the harnesses the native sweep flagged: $hits)" >> $out/check_${pid}_thorough.txt)
-    if grep -q "^VIOLATION" $out/check_${pid}_thorough.txt; then cp $out/check_${pid}_thorough.txt $out/check_$pid.txt; fi
-  fi
-fi
-if [ -z "$hits" ] || { ! grep -q "^VIOLATION" $out/check_$pid.txt && grep -q "no obligation was generated" $out/check_$pid.txt; }; then
-  (cd $V && python3 check.py $pid --tier $tier > $out/check_$pid.txt 2>$out/check_$pid.err; echo "exit=$? (tier $tier, full check; native sweep flagged nothing the restricted runs could decide)" >> $out/check_$pid.txt)
-fi
-?if [ -n "$hits" ]; then
-  (cd $V && VERIF_ONLY="$hits" python3 check.py $pid --tier $tier > $out/check_$pid.txt 2>$out/check_$pid.err; echo "exit=$? (tier $tier, restricted to the harnesses the native sweep flagged: $hits)" >> $out/check_$pid.txt)
-  if ! grep -q "^VIOLATION" $out/check_$pid.txt && [ "$tier" = quick ]; then
-    # the flagged harnesses may belong to the thorough tier only (larger bounds, slow ones)
-    (cd $V && VERIF_ONLY="$hits" python3 check.py $pid --tier thorough > $out/check_${pid}_thorough.txt 2>$out/check_${pid}_thorough.err; echo "exit=$? (tier thorough, restricted to the harnesses the native sweep flagged: $hits)" >> $out/check_${pid}_thorough.txt)
-    if grep -q "^VIOLATION" $out/check_${pid}_thorough.txt; then cp $out/check_${pid}_thorough.txt $out/check_$pid.txt; fi
-  fi
-fi
-if [ -z "$hits" ] || { ! grep -q "^VIOLATION" $out/check_$pid.txt && grep -q "no obligation was generated" $out/check_$pid.txt; }; then
-  (cd $V && python3 check.py $pid --tier $tier > $out/check_$pid.txt 2>$out/check_$pid.err; echo "exit=$? (tier $tier, full check; native sweep flagged nothing the restricted runs could decide)" >> $out/check_$pid.txt)
-fi
- if [ -n "$hits" ]; then
-  (cd $V && VERIF_ONLY="$hits" python3 check.py $pid --tier $tier > $out/check_$pid.txt 2>$out/check_$pid.err; echo "exit=$? (tier $tier, restricted to the harnesses the native sweep flagged: $hits)" >> $out/check_$pid.txt)
-  if ! grep -q "^VIOLATION" $out/check_$pid.txt && [ "$tier" = quick ]; then
-    # the flagged harnesses may belong to the thorough tier only (larger bounds, slow ones)
-    (cd $V && VERIF_ONLY="$hits" python3 check.py $pid --tier thorough > $out/check_${pid}_thorough.txt 2>$out/check_${pid}_thorough.err; echo "exit=$? (tier thorough, restricted to the harnesses the native sweep flagged: $hits)" >> $out/check_${pid}_thorough.txt)
-    if grep -q "^VIOLATION" $out/check_${pid}_thorough.txt; then cp $out/check_${pid}_thorough.txt $out/check_$pid.txt; fi
-  fi
-fi
-if [ -z "$hits" ] || { ! grep -q "^VIOLATION" $out/check_$pid.txt && grep -q "no obligation was generated" $out/check_$pid.txt; }; then
-  (cd $V && python3 check.py $pid --tier $tier > $out/check_$pid.txt 2>$out/check_$pid.err; echo "exit=$? (tier $tier, full check; native sweep flagged nothing the restricted runs could decide)" >> $out/check_$pid.txt)
-fi
-(if [ -n "$hits" ]; then
-  (cd $V && VERIF_ONLY="$hits" python3 check.py $pid --tier $tier > $out/check_$pid.txt 2>$out/check_$pid.err; echo "exit=$? (tier $tier, restricted to the harnesses the native sweep flagged: $hits)" >> $out/check_$pid.txt)
-  if ! grep -q "^VIOLATION" $out/check_$pid.txt && [ "$tier" = quick ]; then
-    # the flagged harnesses may belong to the thorough tier only (larger bounds, slow ones)
-    (cd $V && VERIF_ONLY="$hits" python3 check.py $pid --tier thorough > $out/check_${pid}_thorough.txt 2>$out/check_${pid}_thorough.err; echo "exit=$? (tier thorough, restricted to the harnesses the native sweep flagged: $hits)" >> $out/check_${pid}_thorough.txt)
-    if grep -q "^VIOLATION" $out/check_${pid}_thorough.txt; then cp $out/check_${pid}_thorough.txt $out/check_$pid.txt; fi
-  fi
-fi
-if [ -z "$hits" ] || { ! grep -q "^VIOLATION" $out/check_$pid.txt && grep -q "no obligation was generated" $out/check_$pid.txt; }; then
-  (cd $V && python3 check.py $pid --tier $tier > $out/check_$pid.txt 2>$out/check_$pid.err; echo "exit=$? (tier $tier, full check; native sweep flagged nothing the restricted runs could decide)" >> $out/check_$pid.txt)
-fi
-rif [ -n "$hits" ]; then
-  (cd $V && VERIF_ONLY="$hits" python3 check.py $pid --tier $tier > $out/check_$pid.txt 2>$out/check_$pid.err; echo "exit=$? (tier $tier, restricted to the harnesses the native sweep flagged: $hits)" >> $out/check_$pid.txt)
-  if ! grep -q "^VIOLATION" $out/check_$pid.txt && [ "$tier" = quick ]; then
-    # the flagged harnesses may belong to the thorough tier only (larger bounds, slow ones)
-    (cd $V && VERIF_ONLY="$hits" python3 check.py $pid --tier thorough > $out/check_${pid}_thorough.txt 2>$out/check_${pid}_thorough.err; echo "exit=$? (tier thorough, restricted to the harnesses the native sweep flagged: $hits)" >> $out/check_${pid}_thorough.txt)
-    if grep -q "^VIOLATION" $out/check_${pid}_thorough.txt; then cp $out/check_${pid}_thorough.txt $out/check_$pid.txt; fi
-  fi
-fi
-if [ -z "$hits" ] || { ! grep -q "^VIOLATION" $out/check_$pid.txt && grep -q "no obligation was generated" $out/check_$pid.txt; }; then
-  (cd $V && python3 check.py $pid --tier $tier > $out/check_$pid.txt 2>$out/check_$pid.err; echo "exit=$? (tier $tier, full check; native sweep flagged nothing the restricted runs could decide)" >> $out/check_$pid.txt)
-fi
-eif [ -n "$hits" ]; then
-  (cd $V && VERIF_ONLY="$hits" python3 check.py $pid --tier $tier > $out/check_$pid.txt 2>$out/check_$pid.err; echo "exit=$? (tier $tier, restricted to the harnesses the native sweep flagged: $hits)" >> $out/check_$pid.txt)
-  if ! grep -q "^VIOLATION" $out/check_$pid.txt && [ "$tier" = quick ]; then
-    # the flagged harnesses may belong to the thorough tier only (larger bounds, slow ones)
-    (cd $V && VERIF_ONLY="$hits" python3 check.py $pid --tier thorough > $out/check_${pid}_thorough.txt 2>$out/check_${pid}_thorough.err; echo "exit=$? (tier thorough, restricted to the harnesses the native sweep flagged: $hits)" >> $out/check_${pid}_thorough.txt)
-    if grep -q "^VIOLATION" $out/check_${pid}_thorough.txt; then cp $out/check_${pid}_thorough.txt $out/check_$pid.txt; fi
-  fi
-fi
-if [ -z "$hits" ] || { ! grep -q "^VIOLATION" $out/check_$pid.txt && grep -q "no obligation was generated" $out/check_$pid.txt; }; then
-  (cd $V && python3 check.py $pid --tier $tier > $out/check_$pid.txt 2>$out/check_$pid.err; echo "exit=$? (tier $tier, full check; native sweep flagged nothing the restricted runs could decide)" >> $out/check_$pid.txt)
-fi
-sif [ -n "$hits" ]; then
-  (cd $V && VERIF_ONLY="$hits" python3 check.py $pid --tier $tier > $out/check_$pid.txt 2>$out/check_$pid.err; echo "exit=$? (tier $tier, restricted to the harnesses the native sweep flagged: $hits)" >> $out/check_$pid.txt)
-  if ! grep -q "^VIOLATION" $out/check_$pid.txt && [ "$tier" = quick ]; then
-    # the flagged harnesses may belong to the thorough tier only (larger bounds, slow ones)
-    (cd $V && VERIF_ONLY="$hits" python3 check.py $pid --tier thorough > $out/check_${pid}_thorough.txt 2>$out/check_${pid}_thorough.err; echo "exit=$? (tier thorough, restricted to the harnesses the native sweep flagged: $hits)" >> $out/check_${pid}_thorough.txt)
-    if grep -q "^VIOLATION" $out/check_${pid}_thorough.txt; then cp $out/check_${pid}_thorough.txt $out/check_$pid.txt; fi
-  fi
-fi
-if [ -z "$hits" ] || { ! grep -q "^VIOLATION" $out/check_$pid.txt && grep -q "no obligation was generated" $out/check_$pid.txt; }; then
-  (cd $V && python3 check.py $pid --tier $tier > $out/check_$pid.txt 2>$out/check_$pid.err; echo "exit=$? (tier $tier, full check; native sweep flagged nothing the restricted runs could decide)" >> $out/check_$pid.txt)
-fi
-tif [ -n "$hits" ]; then
-  (cd $V && VERIF_ONLY="$hits" python3 check.py $pid --tier $tier > $out/check_$pid.txt 2>$out/check_$pid.err; echo "exit=$? (tier $tier, restricted to the harnesses the native sweep flagged: $hits)" >> $out/check_$pid.txt)
-  if ! grep -q "^VIOLATION" $out/check_$pid.txt && [ "$tier" = quick ]; then
-    # the flagged harnesses may belong to the thorough tier only (larger bounds, slow ones)
-    (cd $V && VERIF_ONLY="$hits" python3 check.py $pid --tier thorough > $out/check_${pid}_thorough.txt 2>$out/check_${pid}_thorough.err; echo "exit=$? (tier thorough, restricted to the harnesses the native sweep flagged: $hits)" >> $out/check_${pid}_thorough.txt)
-    if grep -q "^VIOLATION" $out/check_${pid}_thorough.txt; then cp $out/check_${pid}_thorough.txt $out/check_$pid.txt; fi
-  fi
-fi
-if [ -z "$hits" ] || { ! grep -q "^VIOLATION" $out/check_$pid.txt && grep -q "no obligation was generated" $out/check_$pid.txt; }; then
-  (cd $V && python3 check.py $pid --tier $tier > $out/check_$pid.txt 2>$out/check_$pid.err; echo "exit=$? (tier $tier, full check; native sweep flagged nothing the restricted runs could decide)" >> $out/check_$pid.txt)
-fi
-rif [ -n "$hits" ]; then
-  (cd $V && VERIF_ONLY="$hits" python3 check.py $pid --tier $tier > $out/check_$pid.txt 2>$out/check_$pid.err; echo "exit=$? (tier $tier, restricted to the harnesses the native sweep flagged: $hits)" >> $out/check_$pid.txt)
-  if ! grep -q "^VIOLATION" $out/check_$pid.txt && [ "$tier" = quick ]; then
-    # the flagged harnesses may belong to the thorough tier only (larger bounds, slow ones)
-    (cd $V && VERIF_ONLY="$hits" python3 check.py $pid --tier thorough > $out/check_${pid}_thorough.txt 2>$out/check_${pid}_thorough.err; echo "exit=$? (tier thorough, restricted to the harnesses the native sweep flagged: $hits)" >> $out/check_${pid}_thorough.txt)
-    if grep -q "^VIOLATION" $out/check_${pid}_thorough.txt; then cp $out/check_${pid}_thorough.txt $out/check_$pid.txt; fi
-  fi
-fi
-if [ -z "$hits" ] || { ! grep -q "^VIOLATION" $out/check_$pid.txt && grep -q "no obligation was generated" $out/check_$pid.txt; }; then
-  (cd $V && python3 check.py $pid --tier $tier > $out/check_$pid.txt 2>$out/check_$pid.err; echo "exit=$? (tier $tier, full check; native sweep flagged nothing the restricted runs could decide)" >> $out/check_$pid.txt)
-fi
-iif [ -n "$hits" ]; then
-  (cd $V && VERIF_ONLY="$hits" python3 check.py $pid --tier $tier > $out/check_$pid.txt 2>$out/check_$pid.err; echo "exit=$? (tier $tier, restricted to the harnesses the native sweep flagged: $hits)" >> $out/check_$pid.txt)
-  if ! grep -q "^VIOLATION" $out/check_$pid.txt && [ "$tier" = quick ]; then
-    # the flagged harnesses may belong to the thorough tier only (larger bounds, slow ones)
-    (cd $V && VERIF_ONLY="$hits" python3 check.py $pid --tier thorough > $out/check_${pid}_thorough.txt 2>$out/check_${pid}_thorough.err; echo "exit=$? (tier thorough, restricted to the harnesses the native sweep flagged: $hits)" >> $out/check_${pid}_thorough.txt)
-    if grep -q "^VIOLATION" $out/check_${pid}_thorough.txt; then cp $out/check_${pid}_thorough.txt $out/check_$pid.txt; fi
-  fi
-fi
-if [ -z "$hits" ] || { ! grep -q "^VIOLATION" $out/check_$pid.txt && grep -q "no obligation was generated" $out/check_$pid.txt; }; then
-  (cd $V && python3 check.py $pid --tier $tier > $out/check_$pid.txt 2>$out/check_$pid.err; echo "exit=$? (tier $tier, full check; native sweep flagged nothing the restricted runs could decide)" >> $out/check_$pid.txt)
-fi
-cif [ -n "$hits" ]; then
-  (cd $V && VERIF_ONLY="$hits" python3 check.py $pid --tier $tier > $out/check_$pid.txt 2>$out/check_$pid.err; echo "exit=$? (tier $tier, restricted to the harnesses the native sweep flagged: $hits)" >> $out/check_$pid.txt)
-  if ! grep -q "^VIOLATION" $out/check_$pid.txt && [ "$tier" = quick ]; then
-    # the flagged harnesses may belong to the thorough tier only (larger bounds, slow ones)
-    (cd $V && VERIF_ONLY="$hits" python3 check.py $pid --tier thorough > $out/check_${pid}_thorough.txt 2>$out/check_${pid}_thorough.err; echo "exit=$? (tier thorough, restricted to the harnesses the native sweep flagged: $hits)" >> $out/check_${pid}_thorough.txt)
-    if grep -q "^VIOLATION" $out/check_${pid}_thorough.txt; then cp $out/check_${pid}_thorough.txt $out/check_$pid.txt; fi
-  fi
-fi
-if [ -z "$hits" ] || { ! grep -q "^VIOLATION" $out/check_$pid.txt && grep -q "no obligation was generated" $out/check_$pid.txt; }; then
-  (cd $V && python3 check.py $pid --tier $tier > $out/check_$pid.txt 2>$out/check_$pid.err; echo "exit=$? (tier $tier, full check; native sweep flagged nothing the restricted runs could decide)" >> $out/check_$pid.txt)
-fi
-tif [ -n "$hits" ]; then
-  (cd $V && VERIF_ONLY="$hits" python3 check.py $pid --tier $tier > $out/check_$pid.txt 2>$out/check_$pid.err; echo "exit=$? (tier $tier, restricted to the harnesses the native sweep flagged: $hits)" >> $out/check_$pid.txt)
-  if ! grep -q "^VIOLATION" $out/check_$pid.txt && [ "$tier" = quick ]; then
-    # the flagged harnesses may belong to the thorough tier only (larger bounds, slow ones)
-    (cd $V && VERIF_ONLY="$hits" python3 check.py $pid --tier thorough > $out/check_${pid}_thorough.txt 2>$out/check_${pid}_thorough.err; echo "exit=$? (tier thorough, restricted to the harnesses the native sweep flagged: $hits)" >> $out/check_${pid}_thorough.txt)
-    if grep -q "^VIOLATION" $out/check_${pid}_thorough.txt; then cp $out/check_${pid}_thorough.txt $out/check_$pid.txt; fi
-  fi
-fi
-if [ -z "$hits" ] || { ! grep -q "^VIOLATION" $out/check_$pid.txt && grep -q "no obligation was generated" $out/check_$pid.txt; }; then
-  (cd $V && python3 check.py $pid --tier $tier > $out/check_$pid.txt 2>$out/check_$pid.err; echo "exit=$? (tier $tier, full check; native sweep flagged nothing the restricted runs could decide)" >> $out/check_$pid.txt)
-fi
-eif [ -n "$hits" ]; then
-  (cd $V && VERIF_ONLY="$hits" python3 check.py $pid --tier $tier > $out/check_$pid.txt 2>$out/check_$pid.err; echo "exit=$? (tier $tier, restricted to the harnesses the native sweep flagged: $hits)" >> $out/check_$pid.txt)
-  if ! grep -q "^VIOLATION" $out/check_$pid.txt && [ "$tier" = quick ]; then
-    # the flagged harnesses may belong to the thorough tier only (larger bounds, slow ones)
-    (cd $V && VERIF_ONLY="$hits" python3 check.py $pid --tier thorough > $out/check_${pid}_thorough.txt 2>$out/check_${pid}_thorough.err; echo "exit=$? (tier thorough, restricted to the harnesses the native sweep flagged: $hits)" >> $out/check_${pid}_thorough.txt)
-    if grep -q "^VIOLATION" $out/check_${pid}_thorough.txt; then cp $out/check_${pid}_thorough.txt $out/check_$pid.txt; fi
-  fi
-fi
-if [ -z "$hits" ] || { ! grep -q "^VIOLATION" $out/check_$pid.txt && grep -q "no obligation was generated" $out/check_$pid.txt; }; then
-  (cd $V && python3 check.py $pid --tier $tier > $out/check_$pid.txt 2>$out/check_$pid.err; echo "exit=$? (tier $tier, full check; native sweep flagged nothing the restricted runs could decide)" >> $out/check_$pid.txt)
-fi
-dif [ -n "$hits" ]; then
-  (cd $V && VERIF_ONLY="$hits" python3 check.py $pid --tier $tier > $out/check_$pid.txt 2>$out/check_$pid.err; echo "exit=$? (tier $tier, restricted to the harnesses the native sweep flagged: $hits)" >> $out/check_$pid.txt)
-  if ! grep -q "^VIOLATION" $out/check_$pid.txt && [ "$tier" = quick ]; then
-    # the flagged harnesses may belong to the thorough tier only (larger bounds, slow ones)
-    (cd $V && VERIF_ONLY="$hits" python3 check.py $pid --tier thorough > $out/check_${pid}_thorough.txt 2>$out/check_${pid}_thorough.err; echo "exit=$? (tier thorough, restricted to the harnesses the native sweep flagged: $hits)" >> $out/check_${pid}_thorough.txt)
-    if grep -q "^VIOLATION" $out/check_${pid}_thorough.txt; then cp $out/check_${pid}_thorough.txt $out/check_$pid.txt; fi
-  fi
-fi
-if [ -z "$hits" ] || { ! grep -q "^VIOLATION" $out/check_$pid.txt && grep -q "no obligation was generated" $out/check_$pid.txt; }; then
-  (cd $V && python3 check.py $pid --tier $tier > $out/check_$pid.txt 2>$out/check_$pid.err; echo "exit=$? (tier $tier, full check; native sweep flagged nothing the restricted runs could decide)" >> $out/check_$pid.txt)
-fi
- if [ -n "$hits" ]; then
-  (cd $V && VERIF_ONLY="$hits" python3 check.py $pid --tier $tier > $out/check_$pid.txt 2>$out/check_$pid.err; echo "exit=$? (tier $tier, restricted to the harnesses the native sweep flagged: $hits)" >> $out/check_$pid.txt)
-  if ! grep -q "^VIOLATION" $out/check_$pid.txt && [ "$tier" = quick ]; then
-    # the flagged harnesses may belong to the thorough tier only (larger bounds, slow ones)
-    (cd $V && VERIF_ONLY="$hits" python3 check.py $pid --tier thorough > $out/check_${pid}_thorough.txt 2>$out/check_${pid}_thorough.err; echo "exit=$? (tier thorough, restricted to the harnesses the native sweep flagged: $hits)" >> $out/check_${pid}_thorough.txt)
-    if grep -q "^VIOLATION" $out/check_${pid}_thorough.txt; then cp $out/check_${pid}_thorough.txt $out/check_$pid.txt; fi
-  fi
-fi
-if [ -z "$hits" ] || { ! grep -q "^VIOLATION" $out/check_$pid.txt && grep -q "no obligation was generated" $out/check_$pid.txt; }; then
-  (cd $V && python3 check.py $pid --tier $tier > $out/check_$pid.txt 2>$out/check_$pid.err; echo "exit=$? (tier $tier, full check; native sweep flagged nothing the restricted runs could decide)" >> $out/check_$pid.txt)
-fi
-tif [ -n "$hits" ]; then
-  (cd $V && VERIF_ONLY="$hits" python3 check.py $pid --tier $tier > $out/check_$pid.txt 2>$out/check_$pid.err; echo "exit=$? (tier $tier, restricted to the harnesses the native sweep flagged: $hits)" >> $out/check_$pid.txt)
-  if ! grep -q "^VIOLATION" $out/check_$pid.txt && [ "$tier" = quick ]; then
-    # the flagged harnesses may belong to the thorough tier only (larger bounds, slow ones)
-    (cd $V && VERIF_ONLY="$hits" python3 check.py $pid --tier thorough > $out/check_${pid}_thorough.txt 2>$out/check_${pid}_thorough.err; echo "exit=$? (tier thorough, restricted to the harnesses the native sweep flagged: $hits)" >> $out/check_${pid}_thorough.txt)
-    if grep -q "^VIOLATION" $out/check_${pid}_thorough.txt; then cp $out/check_${pid}_thorough.txt $out/check_$pid.txt; fi
-  fi
-fi
-if [ -z "$hits" ] || { ! grep -q "^VIOLATION" $out/check_$pid.txt && grep -q "no obligation was generated" $out/check_$pid.txt; }; then
-  (cd $V && python3 check.py $pid --tier $tier > $out/check_$pid.txt 2>$out/check_$pid.err; echo "exit=$? (tier $tier, full check; native sweep flagged nothing the restricted runs could decide)" >> $out/check_$pid.txt)
-fi
-oif [ -n "$hits" ]; then
-  (cd $V && VERIF_ONLY="$hits" python3 check.py $pid --tier $tier > $out/check_$pid.txt 2>$out/check_$pid.err; echo "exit=$? (tier $tier, restricted to the harnesses the native sweep flagged: $hits)" >> $out/check_$pid.txt)
-  if ! grep -q "^VIOLATION" $out/check_$pid.txt && [ "$tier" = quick ]; then
-    # the flagged harnesses may belong to the thorough tier only (larger bounds, slow ones)
-    (cd $V && VERIF_ONLY="$hits" python3 check.py $pid --tier thorough > $out/check_${pid}_thorough.txt 2>$out/check_${pid}_thorough.err; echo "exit=$? (tier thorough, restricted to the harnesses the native sweep flagged: $hits)" >> $out/check_${pid}_thorough.txt)
-    if grep -q "^VIOLATION" $out/check_${pid}_thorough.txt; then cp $out/check_${pid}_thorough.txt $out/check_$pid.txt; fi
-  fi
-fi
-if [ -z "$hits" ] || { ! grep -q "^VIOLATION" $out/check_$pid.txt && grep -q "no obligation was generated" $out/check_$pid.txt; }; then
-  (cd $V && python3 check.py $pid --tier $tier > $out/check_$pid.txt 2>$out/check_$pid.err; echo "exit=$? (tier $tier, full check; native sweep flagged nothing the restricted runs could decide)" >> $out/check_$pid.txt)
-fi
- if [ -n "$hits" ]; then
-  (cd $V && VERIF_ONLY="$hits" python3 check.py $pid --tier $tier > $out/check_$pid.txt 2>$out/check_$pid.err; echo "exit=$? (tier $tier, restricted to the harnesses the native sweep flagged: $hits)" >> $out/check_$pid.txt)
-  if ! grep -q "^VIOLATION" $out/check_$pid.txt && [ "$tier" = quick ]; then
-    # the flagged harnesses may belong to the thorough tier only (larger bounds, slow ones)
-    (cd $V && VERIF_ONLY="$hits" python3 check.py $pid --tier thorough > $out/check_${pid}_thorough.txt 2>$out/check_${pid}_thorough.err; echo "exit=$? (tier thorough, restricted to the harnesses the native sweep flagged: $hits)" >> $out/check_${pid}_thorough.txt)
-    if grep -q "^VIOLATION" $out/check_${pid}_thorough.txt; then cp $out/check_${pid}_thorough.txt $out/check_$pid.txt; fi
-  fi
-fi
-if [ -z "$hits" ] || { ! grep -q "^VIOLATION" $out/check_$pid.txt && grep -q "no obligation was generated" $out/check_$pid.txt; }; then
-  (cd $V && python3 check.py $pid --tier $tier > $out/check_$pid.txt 2>$out/check_$pid.err; echo "exit=$? (tier $tier, full check; native sweep flagged nothing the restricted runs could decide)" >> $out/check_$pid.txt)
-fi
-tif [ -n "$hits" ]; then
-  (cd $V && VERIF_ONLY="$hits" python3 check.py $pid --tier $tier > $out/check_$pid.txt 2>$out/check_$pid.err; echo "exit=$? (tier $tier, restricted to the harnesses the native sweep flagged: $hits)" >> $out/check_$pid.txt)
-  if ! grep -q "^VIOLATION" $out/check_$pid.txt && [ "$tier" = quick ]; then
-    # the flagged harnesses may belong to the thorough tier only (larger bounds, slow ones)
-    (cd $V && VERIF_ONLY="$hits" python3 check.py $pid --tier thorough > $out/check_${pid}_thorough.txt 2>$out/check_${pid}_thorough.err; echo "exit=$? (tier thorough, restricted to the harnesses the native sweep flagged: $hits)" >> $out/check_${pid}_thorough.txt)
-    if grep -q "^VIOLATION" $out/check_${pid}_thorough.txt; then cp $out/check_${pid}_thorough.txt $out/check_$pid.txt; fi
-  fi
-fi
-if [ -z "$hits" ] || { ! grep -q "^VIOLATION" $out/check_$pid.txt && grep -q "no obligation was generated" $out/check_$pid.txt; }; then
-  (cd $V && python3 check.py $pid --tier $tier > $out/check_$pid.txt 2>$out/check_$pid.err; echo "exit=$? (tier $tier, full check; native sweep flagged nothing the restricted runs could decide)" >> $out/check_$pid.txt)
-fi
-hif [ -n "$hits" ]; then
-  (cd $V && VERIF_ONLY="$hits" python3 check.py $pid --tier $tier > $out/check_$pid.txt 2>$out/check_$pid.err; echo "exit=$? (tier $tier, restricted to the harnesses the native sweep flagged: $hits)" >> $out/check_$pid.txt)
-  if ! grep -q "^VIOLATION" $out/check_$pid.txt && [ "$tier" = quick ]; then
-    # the flagged harnesses may belong to the thorough tier only (larger bounds, slow ones)
-    (cd $V && VERIF_ONLY="$hits" python3 check.py $pid --tier thorough > $out/check_${pid}_thorough.txt 2>$out/check_${pid}_thorough.err; echo "exit=$? (tier thorough, restricted to the harnesses the native sweep flagged: $hits)" >> $out/check_${pid}_thorough.txt)
-    if grep -q "^VIOLATION" $out/check_${pid}_thorough.txt; then cp $out/check_${pid}_thorough.txt $out/check_$pid.txt; fi
-  fi
-fi
-if [ -z "$hits" ] || { ! grep -q "^VIOLATION" $out/check_$pid.txt && grep -q "no obligation was generated" $out/check_$pid.txt; }; then
-  (cd $V && python3 check.py $pid --tier $tier > $out/check_$pid.txt 2>$out/check_$pid.err; echo "exit=$? (tier $tier, full check; native sweep flagged nothing the restricted runs could decide)" >> $out/check_$pid.txt)
-fi
-eif [ -n "$hits" ]; then
-  (cd $V && VERIF_ONLY="$hits" python3 check.py $pid --tier $tier > $out/check_$pid.txt 2>$out/check_$pid.err; echo "exit=$? (tier $tier, restricted to the harnesses the native sweep flagged: $hits)" >> $out/check_$pid.txt)
-  if ! grep -q "^VIOLATION" $out/check_$pid.txt && [ "$tier" = quick ]; then
-    # the flagged harnesses may belong to the thorough tier only (larger bounds, slow ones)
-    (cd $V && VERIF_ONLY="$hits" python3 check.py $pid --tier thorough > $out/check_${pid}_thorough.txt 2>$out/check_${pid}_thorough.err; echo "exit=$? (tier thorough, restricted to the harnesses the native sweep flagged: $hits)" >> $out/check_${pid}_thorough.txt)
-    if grep -q "^VIOLATION" $out/check_${pid}_thorough.txt; then cp $out/check_${pid}_thorough.txt $out/check_$pid.txt; fi
-  fi
-fi
-if [ -z "$hits" ] || { ! grep -q "^VIOLATION" $out/check_$pid.txt && grep -q "no obligation was generated" $out/check_$pid.txt; }; then
-  (cd $V && python3 check.py $pid --tier $tier > $out/check_$pid.txt 2>$out/check_$pid.err; echo "exit=$? (tier $tier, full check; native sweep flagged nothing the restricted runs could decide)" >> $out/check_$pid.txt)
-fi
- if [ -n "$hits" ]; then
-  (cd $V && VERIF_ONLY="$hits" python3 check.py $pid --tier $tier > $out/check_$pid.txt 2>$out/check_$pid.err; echo "exit=$? (tier $tier, restricted to the harnesses the native sweep flagged: $hits)" >> $out/check_$pid.txt)
-  if ! grep -q "^VIOLATION" $out/check_$pid.txt && [ "$tier" = quick ]; then
-    # the flagged harnesses may belong to the thorough tier only (larger bounds, slow ones)
-    (cd $V && VERIF_ONLY="$hits" python3 check.py $pid --tier thorough > $out/check_${pid}_thorough.txt 2>$out/check_${pid}_thorough.err; echo "exit=$? (tier thorough, restricted to the harnesses the native sweep flagged: $hits)" >> $out/check_${pid}_thorough.txt)
-    if grep -q "^VIOLATION" $out/check_${pid}_thorough.txt; then cp $out/check_${pid}_thorough.txt $out/check_$pid.txt; fi
-  fi
-fi
-if [ -z "$hits" ] || { ! grep -q "^VIOLATION" $out/check_$pid.txt && grep -q "no obligation was generated" $out/check_$pid.txt; }; then
-  (cd $V && python3 check.py $pid --tier $tier > $out/check_$pid.txt 2>$out/check_$pid.err; echo "exit=$? (tier $tier, full check; native sweep flagged nothing the restricted runs could decide)" >> $out/check_$pid.txt)
-fi
-hif [ -n "$hits" ]; then
-  (cd $V && VERIF_ONLY="$hits" python3 check.py $pid --tier $tier > $out/check_$pid.txt 2>$out/check_$pid.err; echo "exit=$? (tier $tier, restricted to the harnesses the native sweep flagged: $hits)" >> $out/check_$pid.txt)
-  if ! grep -q "^VIOLATION" $out/check_$pid.txt && [ "$tier" = quick ]; then
-    # the flagged harnesses may belong to the thorough tier only (larger bounds, slow ones)
-    (cd $V && VERIF_ONLY="$hits" python3 check.py $pid --tier thorough > $out/check_${pid}_thorough.txt 2>$out/check_${pid}_thorough.err; echo "exit=$? (tier thorough, restricted to the harnesses the native sweep flagged: $hits)" >> $out/check_${pid}_thorough.txt)
-    if grep -q "^VIOLATION" $out/check_${pid}_thorough.txt; then cp $out/check_${pid}_thorough.txt $out/check_$pid.txt; fi
-  fi
-fi
-if [ -z "$hits" ] || { ! grep -q "^VIOLATION" $out/check_$pid.txt && grep -q "no obligation was generated" $out/check_$pid.txt; }; then
-  (cd $V && python3 check.py $pid --tier $tier > $out/check_$pid.txt 2>$out/check_$pid.err; echo "exit=$? (tier $tier, full check; native sweep flagged nothing the restricted runs could decide)" >> $out/check_$pid.txt)
-fi
-aif [ -n "$hits" ]; then
-  (cd $V && VERIF_ONLY="$hits" python3 check.py $pid --tier $tier > $out/check_$pid.txt 2>$out/check_$pid.err; echo "exit=$? (tier $tier, restricted to the harnesses the native sweep flagged: $hits)" >> $out/check_$pid.txt)
-  if ! grep -q "^VIOLATION" $out/check_$pid.txt && [ "$tier" = quick ]; then
-    # the flagged harnesses may belong to the thorough tier only (larger bounds, slow ones)
-    (cd $V && VERIF_ONLY="$hits" python3 check.py $pid --tier thorough > $out/check_${pid}_thorough.txt 2>$out/check_${pid}_thorough.err; echo "exit=$? (tier thorough, restricted to the harnesses the native sweep flagged: $hits)" >> $out/check_${pid}_thorough.txt)
-    if grep -q "^VIOLATION" $out/check_${pid}_thorough.txt; then cp $out/check_${pid}_thorough.txt $out/check_$pid.txt; fi
-  fi
-fi
-if [ -z "$hits" ] || { ! grep -q "^VIOLATION" $out/check_$pid.txt && grep -q "no obligation was generated" $out/check_$pid.txt; }; then
-  (cd $V && python3 check.py $pid --tier $tier > $out/check_$pid.txt 2>$out/check_$pid.err; echo "exit=$? (tier $tier, full check; native sweep flagged nothing the restricted runs could decide)" >> $out/check_$pid.txt)
-fi
-rif [ -n "$hits" ]; then
-  (cd $V && VERIF_ONLY="$hits" python3 check.py $pid --tier $tier > $out/check_$pid.txt 2>$out/check_$pid.err; echo "exit=$? (tier $tier, restricted to the harnesses the native sweep flagged: $hits)" >> $out/check_$pid.txt)
-  if ! grep -q "^VIOLATION" $out/check_$pid.txt && [ "$tier" = quick ]; then
-    # the flagged harnesses may belong to the thorough tier only (larger bounds, slow ones)
-    (cd $V && VERIF_ONLY="$hits" python3 check.py $pid --tier thorough > $out/check_${pid}_thorough.txt 2>$out/check_${pid}_thorough.err; echo "exit=$? (tier thorough, restricted to the harnesses the native sweep flagged: $hits)" >> $out/check_${pid}_thorough.txt)
-    if grep -q "^VIOLATION" $out/check_${pid}_thorough.txt; then cp $out/check_${pid}_thorough.txt $out/check_$pid.txt; fi
-  fi
-fi
-if [ -z "$hits" ] || { ! grep -q "^VIOLATION" $out/check_$pid.txt && grep -q "no obligation was generated" $out/check_$pid.txt; }; then
-  (cd $V && python3 check.py $pid --tier $tier > $out/check_$pid.txt 2>$out/check_$pid.err; echo "exit=$? (tier $tier, full check; native sweep flagged nothing the restricted runs could decide)" >> $out/check_$pid.txt)
-fi
-nif [ -n "$hits" ]; then
-  (cd $V && VERIF_ONLY="$hits" python3 check.py $pid --tier $tier > $out/check_$pid.txt 2>$out/check_$pid.err; echo "exit=$? (tier $tier, restricted to the harnesses the native sweep flagged: $hits)" >> $out/check_$pid.txt)
-  if ! grep -q "^VIOLATION" $out/check_$pid.txt && [ "$tier" = quick ]; then
-    # the flagged harnesses may belong to the thorough tier only (larger bounds, slow ones)
-    (cd $V && VERIF_ONLY="$hits" python3 check.py $pid --tier thorough > $out/check_${pid}_thorough.txt 2>$out/check_${pid}_thorough.err; echo "exit=$? (tier thorough, restricted to the harnesses the native sweep flagged: $hits)" >> $out/check_${pid}_thorough.txt)
-    if grep -q "^VIOLATION" $out/check_${pid}_thorough.txt; then cp $out/check_${pid}_thorough.txt $out/check_$pid.txt; fi
-  fi
-fi
-if [ -z "$hits" ] || { ! grep -q "^VIOLATION" $out/check_$pid.txt && grep -q "no obligation was generated" $out/check_$pid.txt; }; then
-  (cd $V && python3 check.py $pid --tier $tier > $out/check_$pid.txt 2>$out/check_$pid.err; echo "exit=$? (tier $tier, full check; native sweep flagged nothing the restricted runs could decide)" >> $out/check_$pid.txt)
-fi
-eif [ -n "$hits" ]; then
-  (cd $V && VERIF_ONLY="$hits" python3 check.py $pid --tier $tier > $out/check_$pid.txt 2>$out/check_$pid.err; echo "exit=$? (tier $tier, restricted to the harnesses the native sweep flagged: $hits)" >> $out/check_$pid.txt)
-  if ! grep -q "^VIOLATION" $out/check_$pid.txt && [ "$tier" = quick ]; then
-    # the flagged harnesses may belong to the thorough tier only (larger bounds, slow ones)
-    (cd $V && VERIF_ONLY="$hits" python3 check.py $pid --tier thorough > $out/check_${pid}_thorough.txt 2>$out/check_${pid}_thorough.err; echo "exit=$? (tier thorough, restricted to the harnesses the native sweep flagged: $hits)" >> $out/check_${pid}_thorough.txt)
-    if grep -q "^VIOLATION" $out/check_${pid}_thorough.txt; then cp $out/check_${pid}_thorough.txt $out/check_$pid.txt; fi
-  fi
-fi
-if [ -z "$hits" ] || { ! grep -q "^VIOLATION" $out/check_$pid.txt && grep -q "no obligation was generated" $out/check_$pid.txt; }; then
-  (cd $V && python3 check.py $pid --tier $tier > $out/check_$pid.txt 2>$out/check_$pid.err; echo "exit=$? (tier $tier, full check; native sweep flagged nothing the restricted runs could decide)" >> $out/check_$pid.txt)
-fi
-sif [ -n "$hits" ]; then
-  (cd $V && VERIF_ONLY="$hits" python3 check.py $pid --tier $tier > $out/check_$pid.txt 2>$out/check_$pid.err; echo "exit=$? (tier $tier, restricted to the harnesses the native sweep flagged: $hits)" >> $out/check_$pid.txt)
-  if ! grep -q "^VIOLATION" $out/check_$pid.txt && [ "$tier" = quick ]; then
-    # the flagged harnesses may belong to the thorough tier only (larger bounds, slow ones)
-    (cd $V && VERIF_ONLY="$hits" python3 check.py $pid --tier thorough > $out/check_${pid}_thorough.txt 2>$out/check_${pid}_thorough.err; echo "exit=$? (tier thorough, restricted to the harnesses the native sweep flagged: $hits)" >> $out/check_${pid}_thorough.txt)
-    if grep -q "^VIOLATION" $out/check_${pid}_thorough.txt; then cp $out/check_${pid}_thorough.txt $out/check_$pid.txt; fi
-  fi
-fi
-if [ -z "$hits" ] || { ! grep -q "^VIOLATION" $out/check_$pid.txt && grep -q "no obligation was generated" $out/check_$pid.txt; }; then
-  (cd $V && python3 check.py $pid --tier $tier > $out/check_$pid.txt 2>$out/check_$pid.err; echo "exit=$? (tier $tier, full check; native sweep flagged nothing the restricted runs could decide)" >> $out/check_$pid.txt)
-fi
-sif [ -n "$hits" ]; then
-  (cd $V && VERIF_ONLY="$hits" python3 check.py $pid --tier $tier > $out/check_$pid.txt 2>$out/check_$pid.err; echo "exit=$? (tier $tier, restricted to the harnesses the native sweep flagged: $hits)" >> $out/check_$pid.txt)
-  if ! grep -q "^VIOLATION" $out/check_$pid.txt && [ "$tier" = quick ]; then
-    # the flagged harnesses may belong to the thorough tier only (larger bounds, slow ones)
-    (cd $V && VERIF_ONLY="$hits" python3 check.py $pid --tier thorough > $out/check_${pid}_thorough.txt 2>$out/check_${pid}_thorough.err; echo "exit=$? (tier thorough, restricted to the harnesses the native sweep flagged: $hits)" >> $out/check_${pid}_thorough.txt)
-    if grep -q "^VIOLATION" $out/check_${pid}_thorough.txt; then cp $out/check_${pid}_thorough.txt $out/check_$pid.txt; fi
-  fi
-fi
-if [ -z "$hits" ] || { ! grep -q "^VIOLATION" $out/check_$pid.txt && grep -q "no obligation was generated" $out/check_$pid.txt; }; then
-  (cd $V && python3 check.py $pid --tier $tier > $out/check_$pid.txt 2>$out/check_$pid.err; echo "exit=$? (tier $tier, full check; native sweep flagged nothing the restricted runs could decide)" >> $out/check_$pid.txt)
-fi
-eif [ -n "$hits" ]; then
-  (cd $V && VERIF_ONLY="$hits" python3 check.py $pid --tier $tier > $out/check_$pid.txt 2>$out/check_$pid.err; echo "exit=$? (tier $tier, restricted to the harnesses the native sweep flagged: $hits)" >> $out/check_$pid.txt)
-  if ! grep -q "^VIOLATION" $out/check_$pid.txt && [ "$tier" = quick ]; then
-    # the flagged harnesses may belong to the thorough tier only (larger bounds, slow ones)
-    (cd $V && VERIF_ONLY="$hits" python3 check.py $pid --tier thorough > $out/check_${pid}_thorough.txt 2>$out/check_${pid}_thorough.err; echo "exit=$? (tier thorough, restricted to the harnesses the native sweep flagged: $hits)" >> $out/check_${pid}_thorough.txt)
-    if grep -q "^VIOLATION" $out/check_${pid}_thorough.txt; then cp $out/check_${pid}_thorough.txt $out/check_$pid.txt; fi
-  fi
-fi
-if [ -z "$hits" ] || { ! grep -q "^VIOLATION" $out/check_$pid.txt && grep -q "no obligation was generated" $out/check_$pid.txt; }; then
-  (cd $V && python3 check.py $pid --tier $tier > $out/check_$pid.txt 2>$out/check_$pid.err; echo "exit=$? (tier $tier, full check; native sweep flagged nothing the restricted runs could decide)" >> $out/check_$pid.txt)
-fi
-sif [ -n "$hits" ]; then
-  (cd $V && VERIF_ONLY="$hits" python3 check.py $pid --tier $tier > $out/check_$pid.txt 2>$out/check_$pid.err; echo "exit=$? (tier $tier, restricted to the harnesses the native sweep flagged: $hits)" >> $out/check_$pid.txt)
-  if ! grep -q "^VIOLATION" $out/check_$pid.txt && [ "$tier" = quick ]; then
-    # the flagged harnesses may belong to the thorough tier only (larger bounds, slow ones)
-    (cd $V && VERIF_ONLY="$hits" python3 check.py $pid --tier thorough > $out/check_${pid}_thorough.txt 2>$out/check_${pid}_thorough.err; echo "exit=$? (tier thorough, restricted to the harnesses the native sweep flagged: $hits)" >> $out/check_${pid}_thorough.txt)
-    if grep -q "^VIOLATION" $out/check_${pid}_thorough.txt; then cp $out/check_${pid}_thorough.txt $out/check_$pid.txt; fi
-  fi
-fi
-if [ -z "$hits" ] || { ! grep -q "^VIOLATION" $out/check_$pid.txt && grep -q "no obligation was generated" $out/check_$pid.txt; }; then
-  (cd $V && python3 check.py $pid --tier $tier > $out/check_$pid.txt 2>$out/check_$pid.err; echo "exit=$? (tier $tier, full check; native sweep flagged nothing the restricted runs could decide)" >> $out/check_$pid.txt)
-fi
- if [ -n "$hits" ]; then
-  (cd $V && VERIF_ONLY="$hits" python3 check.py $pid --tier $tier > $out/check_$pid.txt 2>$out/check_$pid.err; echo "exit=$? (tier $tier, restricted to the harnesses the native sweep flagged: $hits)" >> $out/check_$pid.txt)
-  if ! grep -q "^VIOLATION" $out/check_$pid.txt && [ "$tier" = quick ]; then
-    # the flagged harnesses may belong to the thorough tier only (larger bounds, slow ones)
-    (cd $V && VERIF_ONLY="$hits" python3 check.py $pid --tier thorough > $out/check_${pid}_thorough.txt 2>$out/check_${pid}_thorough.err; echo "exit=$? (tier thorough, restricted to the harnesses the native sweep flagged: $hits)" >> $out/check_${pid}_thorough.txt)
-    if grep -q "^VIOLATION" $out/check_${pid}_thorough.txt; then cp $out/check_${pid}_thorough.txt $out/check_$pid.txt; fi
-  fi
-fi
-if [ -z "$hits" ] || { ! grep -q "^VIOLATION" $out/check_$pid.txt && grep -q "no obligation was generated" $out/check_$pid.txt; }; then
-  (cd $V && python3 check.py $pid --tier $tier > $out/check_$pid.txt 2>$out/check_$pid.err; echo "exit=$? (tier $tier, full check; native sweep flagged nothing the restricted runs could decide)" >> $out/check_$pid.txt)
-fi
-tif [ -n "$hits" ]; then
-  (cd $V && VERIF_ONLY="$hits" python3 check.py $pid --tier $tier > $out/check_$pid.txt 2>$out/check_$pid.err; echo "exit=$? (tier $tier, restricted to the harnesses the native sweep flagged: $hits)" >> $out/check_$pid.txt)
-  if ! grep -q "^VIOLATION" $out/check_$pid.txt && [ "$tier" = quick ]; then
-    # the flagged harnesses may belong to the thorough tier only (larger bounds, slow ones)
-    (cd $V && VERIF_ONLY="$hits" python3 check.py $pid --tier thorough > $out/check_${pid}_thorough.txt 2>$out/check_${pid}_thorough.err; echo "exit=$? (tier thorough, restricted to the harnesses the native sweep flagged: $hits)" >> $out/check_${pid}_thorough.txt)
-    if grep -q "^VIOLATION" $out/check_${pid}_thorough.txt; then cp $out/check_${pid}_thorough.txt $out/check_$pid.txt; fi
-  fi
-fi
-if [ -z "$hits" ] || { ! grep -q "^VIOLATION" $out/check_$pid.txt && grep -q "no obligation was generated" $out/check_$pid.txt; }; then
-  (cd $V && python3 check.py $pid --tier $tier > $out/check_$pid.txt 2>$out/check_$pid.err; echo "exit=$? (tier $tier, full check; native sweep flagged nothing the restricted runs could decide)" >> $out/check_$pid.txt)
-fi
-hif [ -n "$hits" ]; then
-  (cd $V && VERIF_ONLY="$hits" python3 check.py $pid --tier $tier > $out/check_$pid.txt 2>$out/check_$pid.err; echo "exit=$? (tier $tier, restricted to the harnesses the native sweep flagged: $hits)" >> $out/check_$pid.txt)
-  if ! grep -q "^VIOLATION" $out/check_$pid.txt && [ "$tier" = quick ]; then
-    # the flagged harnesses may belong to the thorough tier only (larger bounds, slow ones)
-    (cd $V && VERIF_ONLY="$hits" python3 check.py $pid --tier thorough > $out/check_${pid}_thorough.txt 2>$out/check_${pid}_thorough.err; echo "exit=$? (tier thorough, restricted to the harnesses the native sweep flagged: $hits)" >> $out/check_${pid}_thorough.txt)
-    if grep -q "^VIOLATION" $out/check_${pid}_thorough.txt; then cp $out/check_${pid}_thorough.txt $out/check_$pid.txt; fi
-  fi
-fi
-if [ -z "$hits" ] || { ! grep -q "^VIOLATION" $out/check_$pid.txt && grep -q "no obligation was generated" $out/check_$pid.txt; }; then
-  (cd $V && python3 check.py $pid --tier $tier > $out/check_$pid.txt 2>$out/check_$pid.err; echo "exit=$? (tier $tier, full check; native sweep flagged nothing the restricted runs could decide)" >> $out/check_$pid.txt)
-fi
-eif [ -n "$hits" ]; then
-  (cd $V && VERIF_ONLY="$hits" python3 check.py $pid --tier $tier > $out/check_$pid.txt 2>$out/check_$pid.err; echo "exit=$? (tier $tier, restricted to the harnesses the native sweep flagged: $hits)" >> $out/check_$pid.txt)
-  if ! grep -q "^VIOLATION" $out/check_$pid.txt && [ "$tier" = quick ]; then
-    # the flagged harnesses may belong to the thorough tier only (larger bounds, slow ones)
-    (cd $V && VERIF_ONLY="$hits" python3 check.py $pid --tier thorough > $out/check_${pid}_thorough.txt 2>$out/check_${pid}_thorough.err; echo "exit=$? (tier thorough, restricted to the harnesses the native sweep flagged: $hits)" >> $out/check_${pid}_thorough.txt)
-    if grep -q "^VIOLATION" $out/check_${pid}_thorough.txt; then cp $out/check_${pid}_thorough.txt $out/check_$pid.txt; fi
-  fi
-fi
-if [ -z "$hits" ] || { ! grep -q "^VIOLATION" $out/check_$pid.txt && grep -q "no obligation was generated" $out/check_$pid.txt; }; then
-  (cd $V && python3 check.py $pid --tier $tier > $out/check_$pid.txt 2>$out/check_$pid.err; echo "exit=$? (tier $tier, full check; native sweep flagged nothing the restricted runs could decide)" >> $out/check_$pid.txt)
-fi
- if [ -n "$hits" ]; then
-  (cd $V && VERIF_ONLY="$hits" python3 check.py $pid --tier $tier > $out/check_$pid.txt 2>$out/check_$pid.err; echo "exit=$? (tier $tier, restricted to the harnesses the native sweep flagged: $hits)" >> $out/check_$pid.txt)
-  if ! grep -q "^VIOLATION" $out/check_$pid.txt && [ "$tier" = quick ]; then
-    # the flagged harnesses may belong to the thorough tier only (larger bounds, slow ones)
-    (cd $V && VERIF_ONLY="$hits" python3 check.py $pid --tier thorough > $out/check_${pid}_thorough.txt 2>$out/check_${pid}_thorough.err; echo "exit=$? (tier thorough, restricted to the harnesses the native sweep flagged: $hits)" >> $out/check_${pid}_thorough.txt)
-    if grep -q "^VIOLATION" $out/check_${pid}_thorough.txt; then cp $out/check_${pid}_thorough.txt $out/check_$pid.txt; fi
-  fi
-fi
-if [ -z "$hits" ] || { ! grep -q "^VIOLATION" $out/check_$pid.txt && grep -q "no obligation was generated" $out/check_$pid.txt; }; then
-  (cd $V && python3 check.py $pid --tier $tier > $out/check_$pid.txt 2>$out/check_$pid.err; echo "exit=$? (tier $tier, full check; native sweep flagged nothing the restricted runs could decide)" >> $out/check_$pid.txt)
-fi
-nif [ -n "$hits" ]; then
-  (cd $V && VERIF_ONLY="$hits" python3 check.py $pid --tier $tier > $out/check_$pid.txt 2>$out/check_$pid.err; echo "exit=$? (tier $tier, restricted to the harnesses the native sweep flagged: $hits)" >> $out/check_$pid.txt)
-  if ! grep -q "^VIOLATION" $out/check_$pid.txt && [ "$tier" = quick ]; then
-    # the flagged harnesses may belong to the thorough tier only (larger bounds, slow ones)
-    (cd $V && VERIF_ONLY="$hits" python3 check.py $pid --tier thorough > $out/check_${pid}_thorough.txt 2>$out/check_${pid}_thorough.err; echo "exit=$? (tier thorough, restricted to the harnesses the native sweep flagged: $hits)" >> $out/check_${pid}_thorough.txt)
-    if grep -q "^VIOLATION" $out/check_${pid}_thorough.txt; then cp $out/check_${pid}_thorough.txt $out/check_$pid.txt; fi
-  fi
-fi
-if [ -z "$hits" ] || { ! grep -q "^VIOLATION" $out/check_$pid.txt && grep -q "no obligation was generated" $out/check_$pid.txt; }; then
-  (cd $V && python3 check.py $pid --tier $tier > $out/check_$pid.txt 2>$out/check_$pid.err; echo "exit=$? (tier $tier, full check; native sweep flagged nothing the restricted runs could decide)" >> $out/check_$pid.txt)
-fi
-aif [ -n "$hits" ]; then
-  (cd $V && VERIF_ONLY="$hits" python3 check.py $pid --tier $tier > $out/check_$pid.txt 2>$out/check_$pid.err; echo "exit=$? (tier $tier, restricted to the harnesses the native sweep flagged: $hits)" >> $out/check_$pid.txt)
-  if ! grep -q "^VIOLATION" $out/check_$pid.txt && [ "$tier" = quick ]; then
-    # the flagged harnesses may belong to the thorough tier only (larger bounds, slow ones)
-    (cd $V && VERIF_ONLY="$hits" python3 check.py $pid --tier thorough > $out/check_${pid}_thorough.txt 2>$out/check_${pid}_thorough.err; echo "exit=$? (tier thorough, restricted to the harnesses the native sweep flagged: $hits)" >> $out/check_${pid}_thorough.txt)
-    if grep -q "^VIOLATION" $out/check_${pid}_thorough.txt; then cp $out/check_${pid}_thorough.txt $out/check_$pid.txt; fi
-  fi
-fi
-if [ -z "$hits" ] || { ! grep -q "^VIOLATION" $out/check_$pid.txt && grep -q "no obligation was generated" $out/check_$pid.txt; }; then
-  (cd $V && python3 check.py $pid --tier $tier > $out/check_$pid.txt 2>$out/check_$pid.err; echo "exit=$? (tier $tier, full check; native sweep flagged nothing the restricted runs could decide)" >> $out/check_$pid.txt)
-fi
-tif [ -n "$hits" ]; then
-  (cd $V && VERIF_ONLY="$hits" python3 check.py $pid --tier $tier > $out/check_$pid.txt 2>$out/check_$pid.err; echo "exit=$? (tier $tier, restricted to the harnesses the native sweep flagged: $hits)" >> $out/check_$pid.txt)
-  if ! grep -q "^VIOLATION" $out/check_$pid.txt && [ "$tier" = quick ]; then
-    # the flagged harnesses may belong to the thorough tier only (larger bounds, slow ones)
-    (cd $V && VERIF_ONLY="$hits" python3 check.py $pid --tier thorough > $out/check_${pid}_thorough.txt 2>$out/check_${pid}_thorough.err; echo "exit=$? (tier thorough, restricted to the harnesses the native sweep flagged: $hits)" >> $out/check_${pid}_thorough.txt)
-    if grep -q "^VIOLATION" $out/check_${pid}_thorough.txt; then cp $out/check_${pid}_thorough.txt $out/check_$pid.txt; fi
-  fi
-fi
-if [ -z "$hits" ] || { ! grep -q "^VIOLATION" $out/check_$pid.txt && grep -q "no obligation was generated" $out/check_$pid.txt; }; then
-  (cd $V && python3 check.py $pid --tier $tier > $out/check_$pid.txt 2>$out/check_$pid.err; echo "exit=$? (tier $tier, full check; native sweep flagged nothing the restricted runs could decide)" >> $out/check_$pid.txt)
-fi
-iif [ -n "$hits" ]; then
-  (cd $V && VERIF_ONLY="$hits" python3 check.py $pid --tier $tier > $out/check_$pid.txt 2>$out/check_$pid.err; echo "exit=$? (tier $tier, restricted to the harnesses the native sweep flagged: $hits)" >> $out/check_$pid.txt)
-  if ! grep -q "^VIOLATION" $out/check_$pid.txt && [ "$tier" = quick ]; then
-    # the flagged harnesses may belong to the thorough tier only (larger bounds, slow ones)
-    (cd $V && VERIF_ONLY="$hits" python3 check.py $pid --tier thorough > $out/check_${pid}_thorough.txt 2>$out/check_${pid}_thorough.err; echo "exit=$? (tier thorough, restricted to the harnesses the native sweep flagged: $hits)" >> $out/check_${pid}_thorough.txt)
-    if grep -q "^VIOLATION" $out/check_${pid}_thorough.txt; then cp $out/check_${pid}_thorough.txt $out/check_$pid.txt; fi
-  fi
-fi
-if [ -z "$hits" ] || { ! grep -q "^VIOLATION" $out/check_$pid.txt && grep -q "no obligation was generated" $out/check_$pid.txt; }; then
-  (cd $V && python3 check.py $pid --tier $tier > $out/check_$pid.txt 2>$out/check_$pid.err; echo "exit=$? (tier $tier, full check; native sweep flagged nothing the restricted runs could decide)" >> $out/check_$pid.txt)
-fi
-vif [ -n "$hits" ]; then
-  (cd $V && VERIF_ONLY="$hits" python3 check.py $pid --tier $tier > $out/check_$pid.txt 2>$out/check_$pid.err; echo "exit=$? (tier $tier, restricted to the harnesses the native sweep flagged: $hits)" >> $out/check_$pid.txt)
-  if ! grep -q "^VIOLATION" $out/check_$pid.txt && [ "$tier" = quick ]; then
-    # the flagged harnesses may belong to the thorough tier only (larger bounds, slow ones)
-    (cd $V && VERIF_ONLY="$hits" python3 check.py $pid --tier thorough > $out/check_${pid}_thorough.txt 2>$out/check_${pid}_thorough.err; echo "exit=$? (tier thorough, restricted to the harnesses the native sweep flagged: $hits)" >> $out/check_${pid}_thorough.txt)
-    if grep -q "^VIOLATION" $out/check_${pid}_thorough.txt; then cp $out/check_${pid}_thorough.txt $out/check_$pid.txt; fi
-  fi
-fi
-if [ -z "$hits" ] || { ! grep -q "^VIOLATION" $out/check_$pid.txt && grep -q "no obligation was generated" $out/check_$pid.txt; }; then
-  (cd $V && python3 check.py $pid --tier $tier > $out/check_$pid.txt 2>$out/check_$pid.err; echo "exit=$? (tier $tier, full check; native sweep flagged nothing the restricted runs could decide)" >> $out/check_$pid.txt)
-fi
-eif [ -n "$hits" ]; then
-  (cd $V && VERIF_ONLY="$hits" python3 check.py $pid --tier $tier > $out/check_$pid.txt 2>$out/check_$pid.err; echo "exit=$? (tier $tier, restricted to the harnesses the native sweep flagged: $hits)" >> $out/check_$pid.txt)
-  if ! grep -q "^VIOLATION" $out/check_$pid.txt && [ "$tier" = quick ]; then
-    # the flagged harnesses may belong to the thorough tier only (larger bounds, slow ones)
-    (cd $V && VERIF_ONLY="$hits" python3 check.py $pid --tier thorough > $out/check_${pid}_thorough.txt 2>$out/check_${pid}_thorough.err; echo "exit=$? (tier thorough, restricted to the harnesses the native sweep flagged: $hits)" >> $out/check_${pid}_thorough.txt)
-    if grep -q "^VIOLATION" $out/check_${pid}_thorough.txt; then cp $out/check_${pid}_thorough.txt $out/check_$pid.txt; fi
-  fi
-fi
-if [ -z "$hits" ] || { ! grep -q "^VIOLATION" $out/check_$pid.txt && grep -q "no obligation was generated" $out/check_$pid.txt; }; then
-  (cd $V && python3 check.py $pid --tier $tier > $out/check_$pid.txt 2>$out/check_$pid.err; echo "exit=$? (tier $tier, full check; native sweep flagged nothing the restricted runs could decide)" >> $out/check_$pid.txt)
-fi
- if [ -n "$hits" ]; then
-  (cd $V && VERIF_ONLY="$hits" python3 check.py $pid --tier $tier > $out/check_$pid.txt 2>$out/check_$pid.err; echo "exit=$? (tier $tier, restricted to the harnesses the native sweep flagged: $hits)" >> $out/check_$pid.txt)
-  if ! grep -q "^VIOLATION" $out/check_$pid.txt && [ "$tier" = quick ]; then
-    # the flagged harnesses may belong to the thorough tier only (larger bounds, slow ones)
-    (cd $V && VERIF_ONLY="$hits" python3 check.py $pid --tier thorough > $out/check_${pid}_thorough.txt 2>$out/check_${pid}_thorough.err; echo "exit=$? (tier thorough, restricted to the harnesses the native sweep flagged: $hits)" >> $out/check_${pid}_thorough.txt)
-    if grep -q "^VIOLATION" $out/check_${pid}_thorough.txt; then cp $out/check_${pid}_thorough.txt $out/check_$pid.txt; fi
-  fi
-fi
-if [ -z "$hits" ] || { ! grep -q "^VIOLATION" $out/check_$pid.txt && grep -q "no obligation was generated" $out/check_$pid.txt; }; then
-  (cd $V && python3 check.py $pid --tier $tier > $out/check_$pid.txt 2>$out/check_$pid.err; echo "exit=$? (tier $tier, full check; native sweep flagged nothing the restricted runs could decide)" >> $out/check_$pid.txt)
-fi
-sif [ -n "$hits" ]; then
-  (cd $V && VERIF_ONLY="$hits" python3 check.py $pid --tier $tier > $out/check_$pid.txt 2>$out/check_$pid.err; echo "exit=$? (tier $tier, restricted to the harnesses the native sweep flagged: $hits)" >> $out/check_$pid.txt)
-  if ! grep -q "^VIOLATION" $out/check_$pid.txt && [ "$tier" = quick ]; then
-    # the flagged harnesses may belong to the thorough tier only (larger bounds, slow ones)
-    (cd $V && VERIF_ONLY="$hits" python3 check.py $pid --tier thorough > $out/check_${pid}_thorough.txt 2>$out/check_${pid}_thorough.err; echo "exit=$? (tier thorough, restricted to the harnesses the native sweep flagged: $hits)" >> $out/check_${pid}_thorough.txt)
-    if grep -q "^VIOLATION" $out/check_${pid}_thorough.txt; then cp $out/check_${pid}_thorough.txt $out/check_$pid.txt; fi
-  fi
-fi
-if [ -z "$hits" ] || { ! grep -q "^VIOLATION" $out/check_$pid.txt && grep -q "no obligation was generated" $out/check_$pid.txt; }; then
-  (cd $V && python3 check.py $pid --tier $tier > $out/check_$pid.txt 2>$out/check_$pid.err; echo "exit=$? (tier $tier, full check; native sweep flagged nothing the restricted runs could decide)" >> $out/check_$pid.txt)
-fi
-wif [ -n "$hits" ]; then
-  (cd $V && VERIF_ONLY="$hits" python3 check.py $pid --tier $tier > $out/check_$pid.txt 2>$out/check_$pid.err; echo "exit=$? (tier $tier, restricted to the harnesses the native sweep flagged: $hits)" >> $out/check_$pid.txt)
-  if ! grep -q "^VIOLATION" $out/check_$pid.txt && [ "$tier" = quick ]; then
-    # the flagged harnesses may belong to the thorough tier only (larger bounds, slow ones)
-    (cd $V && VERIF_ONLY="$hits" python3 check.py $pid --tier thorough > $out/check_${pid}_thorough.txt 2>$out/check_${pid}_thorough.err; echo "exit=$? (tier thorough, restricted to the harnesses the native sweep flagged: $hits)" >> $out/check_${pid}_thorough.txt)
-    if grep -q "^VIOLATION" $out/check_${pid}_thorough.txt; then cp $out/check_${pid}_thorough.txt $out/check_$pid.txt; fi
-  fi
-fi
-if [ -z "$hits" ] || { ! grep -q "^VIOLATION" $out/check_$pid.txt && grep -q "no obligation was generated" $out/check_$pid.txt; }; then
-  (cd $V && python3 check.py $pid --tier $tier > $out/check_$pid.txt 2>$out/check_$pid.err; echo "exit=$? (tier $tier, full check; native sweep flagged nothing the restricted runs could decide)" >> $out/check_$pid.txt)
-fi
-eif [ -n "$hits" ]; then
-  (cd $V && VERIF_ONLY="$hits" python3 check.py $pid --tier $tier > $out/check_$pid.txt 2>$out/check_$pid.err; echo "exit=$? (tier $tier, restricted to the harnesses the native sweep flagged: $hits)" >> $out/check_$pid.txt)
-  if ! grep -q "^VIOLATION" $out/check_$pid.txt && [ "$tier" = quick ]; then
-    # the flagged harnesses may belong to the thorough tier only (larger bounds, slow ones)
-    (cd $V && VERIF_ONLY="$hits" python3 check.py $pid --tier thorough > $out/check_${pid}_thorough.txt 2>$out/check_${pid}_thorough.err; echo "exit=$? (tier thorough, restricted to the harnesses the native sweep flagged: $hits)" >> $out/check_${pid}_thorough.txt)
-    if grep -q "^VIOLATION" $out/check_${pid}_thorough.txt; then cp $out/check_${pid}_thorough.txt $out/check_$pid.txt; fi
-  fi
-fi
-if [ -z "$hits" ] || { ! grep -q "^VIOLATION" $out/check_$pid.txt && grep -q "no obligation was generated" $out/check_$pid.txt; }; then
-  (cd $V && python3 check.py $pid --tier $tier > $out/check_$pid.txt 2>$out/check_$pid.err; echo "exit=$? (tier $tier, full check; native sweep flagged nothing the restricted runs could decide)" >> $out/check_$pid.txt)
-fi
-eif [ -n "$hits" ]; then
-  (cd $V && VERIF_ONLY="$hits" python3 check.py $pid --tier $tier > $out/check_$pid.txt 2>$out/check_$pid.err; echo "exit=$? (tier $tier, restricted to the harnesses the native sweep flagged: $hits)" >> $out/check_$pid.txt)
-  if ! grep -q "^VIOLATION" $out/check_$pid.txt && [ "$tier" = quick ]; then
-    # the flagged harnesses may belong to the thorough tier only (larger bounds, slow ones)
-    (cd $V && VERIF_ONLY="$hits" python3 check.py $pid --tier thorough > $out/check_${pid}_thorough.txt 2>$out/check_${pid}_thorough.err; echo "exit=$? (tier thorough, restricted to the harnesses the native sweep flagged: $hits)" >> $out/check_${pid}_thorough.txt)
-    if grep -q "^VIOLATION" $out/check_${pid}_thorough.txt; then cp $out/check_${pid}_thorough.txt $out/check_$pid.txt; fi
-  fi
-fi
-if [ -z "$hits" ] || { ! grep -q "^VIOLATION" $out/check_$pid.txt && grep -q "no obligation was generated" $out/check_$pid.txt; }; then
-  (cd $V && python3 check.py $pid --tier $tier > $out/check_$pid.txt 2>$out/check_$pid.err; echo "exit=$? (tier $tier, full check; native sweep flagged nothing the restricted runs could decide)" >> $out/check_$pid.txt)
-fi
-pif [ -n "$hits" ]; then
-  (cd $V && VERIF_ONLY="$hits" python3 check.py $pid --tier $tier > $out/check_$pid.txt 2>$out/check_$pid.err; echo "exit=$? (tier $tier, restricted to the harnesses the native sweep flagged: $hits)" >> $out/check_$pid.txt)
-  if ! grep -q "^VIOLATION" $out/check_$pid.txt && [ "$tier" = quick ]; then
-    # the flagged harnesses may belong to the thorough tier only (larger bounds, slow ones)
-    (cd $V && VERIF_ONLY="$hits" python3 check.py $pid --tier thorough > $out/check_${pid}_thorough.txt 2>$out/check_${pid}_thorough.err; echo "exit=$? (tier thorough, restricted to the harnesses the native sweep flagged: $hits)" >> $out/check_${pid}_thorough.txt)
-    if grep -q "^VIOLATION" $out/check_${pid}_thorough.txt; then cp $out/check_${pid}_thorough.txt $out/check_$pid.txt; fi
-  fi
-fi
-if [ -z "$hits" ] || { ! grep -q "^VIOLATION" $out/check_$pid.txt && grep -q "no obligation was generated" $out/check_$pid.txt; }; then
-  (cd $V && python3 check.py $pid --tier $tier > $out/check_$pid.txt 2>$out/check_$pid.err; echo "exit=$? (tier $tier, full check; native sweep flagged nothing the restricted runs could decide)" >> $out/check_$pid.txt)
-fi
- if [ -n "$hits" ]; then
-  (cd $V && VERIF_ONLY="$hits" python3 check.py $pid --tier $tier > $out/check_$pid.txt 2>$out/check_$pid.err; echo "exit=$? (tier $tier, restricted to the harnesses the native sweep flagged: $hits)" >> $out/check_$pid.txt)
-  if ! grep -q "^VIOLATION" $out/check_$pid.txt && [ "$tier" = quick ]; then
-    # the flagged harnesses may belong to the thorough tier only (larger bounds, slow ones)
-    (cd $V && VERIF_ONLY="$hits" python3 check.py $pid --tier thorough > $out/check_${pid}_thorough.txt 2>$out/check_${pid}_thorough.err; echo "exit=$? (tier thorough, restricted to the harnesses the native sweep flagged: $hits)" >> $out/check_${pid}_thorough.txt)
-    if grep -q "^VIOLATION" $out/check_${pid}_thorough.txt; then cp $out/check_${pid}_thorough.txt $out/check_$pid.txt; fi
-  fi
-fi
-if [ -z "$hits" ] || { ! grep -q "^VIOLATION" $out/check_$pid.txt && grep -q "no obligation was generated" $out/check_$pid.txt; }; then
-  (cd $V && python3 check.py $pid --tier $tier > $out/check_$pid.txt 2>$out/check_$pid.err; echo "exit=$? (tier $tier, full check; native sweep flagged nothing the restricted runs could decide)" >> $out/check_$pid.txt)
-fi
-fif [ -n "$hits" ]; then
-  (cd $V && VERIF_ONLY="$hits" python3 check.py $pid --tier $tier > $out/check_$pid.txt 2>$out/check_$pid.err; echo "exit=$? (tier $tier, restricted to the harnesses the native sweep flagged: $hits)" >> $out/check_$pid.txt)
-  if ! grep -q "^VIOLATION" $out/check_$pid.txt && [ "$tier" = quick ]; then
-    # the flagged harnesses may belong to the thorough tier only (larger bounds, slow ones)
-    (cd $V && VERIF_ONLY="$hits" python3 check.py $pid --tier thorough > $out/check_${pid}_thorough.txt 2>$out/check_${pid}_thorough.err; echo "exit=$? (tier thorough, restricted to the harnesses the native sweep flagged: $hits)" >> $out/check_${pid}_thorough.txt)
-    if grep -q "^VIOLATION" $out/check_${pid}_thorough.txt; then cp $out/check_${pid}_thorough.txt $out/check_$pid.txt; fi
-  fi
-fi
-if [ -z "$hits" ] || { ! grep -q "^VIOLATION" $out/check_$pid.txt && grep -q "no obligation was generated" $out/check_$pid.txt; }; then
-  (cd $V && python3 check.py $pid --tier $tier > $out/check_$pid.txt 2>$out/check_$pid.err; echo "exit=$? (tier $tier, full check; native sweep flagged nothing the restricted runs could decide)" >> $out/check_$pid.txt)
-fi
-lif [ -n "$hits" ]; then
-  (cd $V && VERIF_ONLY="$hits" python3 check.py $pid --tier $tier > $out/check_$pid.txt 2>$out/check_$pid.err; echo "exit=$? (tier $tier, restricted to the harnesses the native sweep flagged: $hits)" >> $out/check_$pid.txt)
-  if ! grep -q "^VIOLATION" $out/check_$pid.txt && [ "$tier" = quick ]; then
-    # the flagged harnesses may belong to the thorough tier only (larger bounds, slow ones)
-    (cd $V && VERIF_ONLY="$hits" python3 check.py $pid --tier thorough > $out/check_${pid}_thorough.txt 2>$out/check_${pid}_thorough.err; echo "exit=$? (tier thorough, restricted to the harnesses the native sweep flagged: $hits)" >> $out/check_${pid}_thorough.txt)
-    if grep -q "^VIOLATION" $out/check_${pid}_thorough.txt; then cp $out/check_${pid}_thorough.txt $out/check_$pid.txt; fi
-  fi
-fi
-if [ -z "$hits" ] || { ! grep -q "^VIOLATION" $out/check_$pid.txt && grep -q "no obligation was generated" $out/check_$pid.txt; }; then
-  (cd $V && python3 check.py $pid --tier $tier > $out/check_$pid.txt 2>$out/check_$pid.err; echo "exit=$? (tier $tier, full check; native sweep flagged nothing the restricted runs could decide)" >> $out/check_$pid.txt)
-fi
-aif [ -n "$hits" ]; then
-  (cd $V && VERIF_ONLY="$hits" python3 check.py $pid --tier $tier > $out/check_$pid.txt 2>$out/check_$pid.err; echo "exit=$? (tier $tier, restricted to the harnesses the native sweep flagged: $hits)" >> $out/check_$pid.txt)
-  if ! grep -q "^VIOLATION" $out/check_$pid.txt && [ "$tier" = quick ]; then
-    # the flagged harnesses may belong to the thorough tier only (larger bounds, slow ones)
-    (cd $V && VERIF_ONLY="$hits" python3 check.py $pid --tier thorough > $out/check_${pid}_thorough.txt 2>$out/check_${pid}_thorough.err; echo "exit=$? (tier thorough, restricted to the harnesses the native sweep flagged: $hits)" >> $out/check_${pid}_thorough.txt)
-    if grep -q "^VIOLATION" $out/check_${pid}_thorough.txt; then cp $out/check_${pid}_thorough.txt $out/check_$pid.txt; fi
-  fi
-fi
-if [ -z "$hits" ] || { ! grep -q "^VIOLATION" $out/check_$pid.txt && grep -q "no obligation was generated" $out/check_$pid.txt; }; then
-  (cd $V && python3 check.py $pid --tier $tier > $out/check_$pid.txt 2>$out/check_$pid.err; echo "exit=$? (tier $tier, full check; native sweep flagged nothing the restricted runs could decide)" >> $out/check_$pid.txt)
-fi
-gif [ -n "$hits" ]; then
-  (cd $V && VERIF_ONLY="$hits" python3 check.py $pid --tier $tier > $out/check_$pid.txt 2>$out/check_$pid.err; echo "exit=$? (tier $tier, restricted to the harnesses the native sweep flagged: $hits)" >> $out/check_$pid.txt)
-  if ! grep -q "^VIOLATION" $out/check_$pid.txt && [ "$tier" = quick ]; then
-    # the flagged harnesses may belong to the thorough tier only (larger bounds, slow ones)
-    (cd $V && VERIF_ONLY="$hits" python3 check.py $pid --tier thorough > $out/check_${pid}_thorough.txt 2>$out/check_${pid}_thorough.err; echo "exit=$? (tier thorough, restricted to the harnesses the native sweep flagged: $hits)" >> $out/check_${pid}_thorough.txt)
-    if grep -q "^VIOLATION" $out/check_${pid}_thorough.txt; then cp $out/check_${pid}_thorough.txt $out/check_$pid.txt; fi
-  fi
-fi
-if [ -z "$hits" ] || { ! grep -q "^VIOLATION" $out/check_$pid.txt && grep -q "no obligation was generated" $out/check_$pid.txt; }; then
-  (cd $V && python3 check.py $pid --tier $tier > $out/check_$pid.txt 2>$out/check_$pid.err; echo "exit=$? (tier $tier, full check; native sweep flagged nothing the restricted runs could decide)" >> $out/check_$pid.txt)
-fi
-gif [ -n "$hits" ]; then
-  (cd $V && VERIF_ONLY="$hits" python3 check.py $pid --tier $tier > $out/check_$pid.txt 2>$out/check_$pid.err; echo "exit=$? (tier $tier, restricted to the harnesses the native sweep flagged: $hits)" >> $out/check_$pid.txt)
-  if ! grep -q "^VIOLATION" $out/check_$pid.txt && [ "$tier" = quick ]; then
-    # the flagged harnesses may belong to the thorough tier only (larger bounds, slow ones)
-    (cd $V && VERIF_ONLY="$hits" python3 check.py $pid --tier thorough > $out/check_${pid}_thorough.txt 2>$out/check_${pid}_thorough.err; echo "exit=$? (tier thorough, restricted to the harnesses the native sweep flagged: $hits)" >> $out/check_${pid}_thorough.txt)
-    if grep -q "^VIOLATION" $out/check_${pid}_thorough.txt; then cp $out/check_${pid}_thorough.txt $out/check_$pid.txt; fi
-  fi
-fi
-if [ -z "$hits" ] || { ! grep -q "^VIOLATION" $out/check_$pid.txt && grep -q "no obligation was generated" $out/check_$pid.txt; }; then
-  (cd $V && python3 check.py $pid --tier $tier > $out/check_$pid.txt 2>$out/check_$pid.err; echo "exit=$? (tier $tier, full check; native sweep flagged nothing the restricted runs could decide)" >> $out/check_$pid.txt)
-fi
-eif [ -n "$hits" ]; then
-  (cd $V && VERIF_ONLY="$hits" python3 check.py $pid --tier $tier > $out/check_$pid.txt 2>$out/check_$pid.err; echo "exit=$? (tier $tier, restricted to the harnesses the native sweep flagged: $hits)" >> $out/check_$pid.txt)
-  if ! grep -q "^VIOLATION" $out/check_$pid.txt && [ "$tier" = quick ]; then
-    # the flagged harnesses may belong to the thorough tier only (larger bounds, slow ones)
-    (cd $V && VERIF_ONLY="$hits" python3 check.py $pid --tier thorough > $out/check_${pid}_thorough.txt 2>$out/check_${pid}_thorough.err; echo "exit=$? (tier thorough, restricted to the harnesses the native sweep flagged: $hits)" >> $out/check_${pid}_thorough.txt)
-    if grep -q "^VIOLATION" $out/check_${pid}_thorough.txt; then cp $out/check_${pid}_thorough.txt $out/check_$pid.txt; fi
-  fi
-fi
-if [ -z "$hits" ] || { ! grep -q "^VIOLATION" $out/check_$pid.txt && grep -q "no obligation was generated" $out/check_$pid.txt; }; then
-  (cd $V && python3 check.py $pid --tier $tier > $out/check_$pid.txt 2>$out/check_$pid.err; echo "exit=$? (tier $tier, full check; native sweep flagged nothing the restricted runs could decide)" >> $out/check_$pid.txt)
-fi
-dif [ -n "$hits" ]; then
-  (cd $V && VERIF_ONLY="$hits" python3 check.py $pid --tier $tier > $out/check_$pid.txt 2>$out/check_$pid.err; echo "exit=$? (tier $tier, restricted to the harnesses the native sweep flagged: $hits)" >> $out/check_$pid.txt)
-  if ! grep -q "^VIOLATION" $out/check_$pid.txt && [ "$tier" = quick ]; then
-    # the flagged harnesses may belong to the thorough tier only (larger bounds, slow ones)
-    (cd $V && VERIF_ONLY="$hits" python3 check.py $pid --tier thorough > $out/check_${pid}_thorough.txt 2>$out/check_${pid}_thorough.err; echo "exit=$? (tier thorough, restricted to the harnesses the native sweep flagged: $hits)" >> $out/check_${pid}_thorough.txt)
-    if grep -q "^VIOLATION" $out/check_${pid}_thorough.txt; then cp $out/check_${pid}_thorough.txt $out/check_$pid.txt; fi
-  fi
-fi
-if [ -z "$hits" ] || { ! grep -q "^VIOLATION" $out/check_$pid.txt && grep -q "no obligation was generated" $out/check_$pid.txt; }; then
-  (cd $V && python3 check.py $pid --tier $tier > $out/check_$pid.txt 2>$out/check_$pid.err; echo "exit=$? (tier $tier, full check; native sweep flagged nothing the restricted runs could decide)" >> $out/check_$pid.txt)
-fi
-:if [ -n "$hits" ]; then
-  (cd $V && VERIF_ONLY="$hits" python3 check.py $pid --tier $tier > $out/check_$pid.txt 2>$out/check_$pid.err; echo "exit=$? (tier $tier, restricted to the harnesses the native sweep flagged: $hits)" >> $out/check_$pid.txt)
-  if ! grep -q "^VIOLATION" $out/check_$pid.txt && [ "$tier" = quick ]; then
-    # the flagged harnesses may belong to the thorough tier only (larger bounds, slow ones)
-    (cd $V && VERIF_ONLY="$hits" python3 check.py $pid --tier thorough > $out/check_${pid}_thorough.txt 2>$out/check_${pid}_thorough.err; echo "exit=$? (tier thorough, restricted to the harnesses the native sweep flagged: $hits)" >> $out/check_${pid}_thorough.txt)
-    if grep -q "^VIOLATION" $out/check_${pid}_thorough.txt; then cp $out/check_${pid}_thorough.txt $out/check_$pid.txt; fi
-  fi
-fi
-if [ -z "$hits" ] || { ! grep -q "^VIOLATION" $out/check_$pid.txt && grep -q "no obligation was generated" $out/check_$pid.txt; }; then
-  (cd $V && python3 check.py $pid --tier $tier > $out/check_$pid.txt 2>$out/check_$pid.err; echo "exit=$? (tier $tier, full check; native sweep flagged nothing the restricted runs could decide)" >> $out/check_$pid.txt)
-fi
- if [ -n "$hits" ]; then
-  (cd $V && VERIF_ONLY="$hits" python3 check.py $pid --tier $tier > $out/check_$pid.txt 2>$out/check_$pid.err; echo "exit=$? (tier $tier, restricted to the harnesses the native sweep flagged: $hits)" >> $out/check_$pid.txt)
-  if ! grep -q "^VIOLATION" $out/check_$pid.txt && [ "$tier" = quick ]; then
-    # the flagged harnesses may belong to the thorough tier only (larger bounds, slow ones)
-    (cd $V && VERIF_ONLY="$hits" python3 check.py $pid --tier thorough > $out/check_${pid}_thorough.txt 2>$out/check_${pid}_thorough.err; echo "exit=$? (tier thorough, restricted to the harnesses the native sweep flagged: $hits)" >> $out/check_${pid}_thorough.txt)
-    if grep -q "^VIOLATION" $out/check_${pid}_thorough.txt; then cp $out/check_${pid}_thorough.txt $out/check_$pid.txt; fi
-  fi
-fi
-if [ -z "$hits" ] || { ! grep -q "^VIOLATION" $out/check_$pid.txt && grep -q "no obligation was generated" $out/check_$pid.txt; }; then
-  (cd $V && python3 check.py $pid --tier $tier > $out/check_$pid.txt 2>$out/check_$pid.err; echo "exit=$? (tier $tier, full check; native sweep flagged nothing the restricted runs could decide)" >> $out/check_$pid.txt)
-fi
-$if [ -n "$hits" ]; then
-  (cd $V && VERIF_ONLY="$hits" python3 check.py $pid --tier $tier > $out/check_$pid.txt 2>$out/check_$pid.err; echo "exit=$? (tier $tier, restricted to the harnesses the native sweep flagged: $hits)" >> $out/check_$pid.txt)
-  if ! grep -q "^VIOLATION" $out/check_$pid.txt && [ "$tier" = quick ]; then
-    # the flagged harnesses may belong to the thorough tier only (larger bounds, slow ones)
-    (cd $V && VERIF_ONLY="$hits" python3 check.py $pid --tier thorough > $out/check_${pid}_thorough.txt 2>$out/check_${pid}_thorough.err; echo "exit=$? (tier thorough, restricted to the harnesses the native sweep flagged: $hits)" >> $out/check_${pid}_thorough.txt)
-    if grep -q "^VIOLATION" $out/check_${pid}_thorough.txt; then cp $out/check_${pid}_thorough.txt $out/check_$pid.txt; fi
-  fi
-fi
-if [ -z "$hits" ] || { ! grep -q "^VIOLATION" $out/check_$pid.txt && grep -q "no obligation was generated" $out/check_$pid.txt; }; then
-  (cd $V && python3 check.py $pid --tier $tier > $out/check_$pid.txt 2>$out/check_$pid.err; echo "exit=$? (tier $tier, full check; native sweep flagged nothing the restricted runs could decide)" >> $out/check_$pid.txt)
-fi
-hif [ -n "$hits" ]; then
-  (cd $V && VERIF_ONLY="$hits" python3 check.py $pid --tier $tier > $out/check_$pid.txt 2>$out/check_$pid.err; echo "exit=$? (tier $tier, restricted to the harnesses the native sweep flagged: $hits)" >> $out/check_$pid.txt)
-  if ! grep -q "^VIOLATION" $out/check_$pid.txt && [ "$tier" = quick ]; then
-    # the flagged harnesses may belong to the thorough tier only (larger bounds, slow ones)
-    (cd $V && VERIF_ONLY="$hits" python3 check.py $pid --tier thorough > $out/check_${pid}_thorough.txt 2>$out/check_${pid}_thorough.err; echo "exit=$? (tier thorough, restricted to the harnesses the native sweep flagged: $hits)" >> $out/check_${pid}_thorough.txt)
-    if grep -q "^VIOLATION" $out/check_${pid}_thorough.txt; then cp $out/check_${pid}_thorough.txt $out/check_$pid.txt; fi
-  fi
-fi
-if [ -z "$hits" ] || { ! grep -q "^VIOLATION" $out/check_$pid.txt && grep -q "no obligation was generated" $out/check_$pid.txt; }; then
-  (cd $V && python3 check.py $pid --tier $tier > $out/check_$pid.txt 2>$out/check_$pid.err; echo "exit=$? (tier $tier, full check; native sweep flagged nothing the restricted runs could decide)" >> $out/check_$pid.txt)
-fi
-iif [ -n "$hits" ]; then
-  (cd $V && VERIF_ONLY="$hits" python3 check.py $pid --tier $tier > $out/check_$pid.txt 2>$out/check_$pid.err; echo "exit=$? (tier $tier, restricted to the harnesses the native sweep flagged: $hits)" >> $out/check_$pid.txt)
-  if ! grep -q "^VIOLATION" $out/check_$pid.txt && [ "$tier" = quick ]; then
-    # the flagged harnesses may belong to the thorough tier only (larger bounds, slow ones)
-    (cd $V && VERIF_ONLY="$hits" python3 check.py $pid --tier thorough > $out/check_${pid}_thorough.txt 2>$out/check_${pid}_thorough.err; echo "exit=$? (tier thorough, restricted to the harnesses the native sweep flagged: $hits)" >> $out/check_${pid}_thorough.txt)
-    if grep -q "^VIOLATION" $out/check_${pid}_thorough.txt; then cp $out/check_${pid}_thorough.txt $out/check_$pid.txt; fi
-  fi
-fi
-if [ -z "$hits" ] || { ! grep -q "^VIOLATION" $out/check_$pid.txt && grep -q "no obligation was generated" $out/check_$pid.txt; }; then
-  (cd $V && python3 check.py $pid --tier $tier > $out/check_$pid.txt 2>$out/check_$pid.err; echo "exit=$? (tier $tier, full check; native sweep flagged nothing the restricted runs could decide)" >> $out/check_$pid.txt)
-fi
-tif [ -n "$hits" ]; then
-  (cd $V && VERIF_ONLY="$hits" python3 check.py $pid --tier $tier > $out/check_$pid.txt 2>$out/check_$pid.err; echo "exit=$? (tier $tier, restricted to the harnesses the native sweep flagged: $hits)" >> $out/check_$pid.txt)
-  if ! grep -q "^VIOLATION" $out/check_$pid.txt && [ "$tier" = quick ]; then
-    # the flagged harnesses may belong to the thorough tier only (larger bounds, slow ones)
-    (cd $V && VERIF_ONLY="$hits" python3 check.py $pid --tier thorough > $out/check_${pid}_thorough.txt 2>$out/check_${pid}_thorough.err; echo "exit=$? (tier thorough, restricted to the harnesses the native sweep flagged: $hits)" >> $out/check_${pid}_thorough.txt)
-    if grep -q "^VIOLATION" $out/check_${pid}_thorough.txt; then cp $out/check_${pid}_thorough.txt $out/check_$pid.txt; fi
-  fi
-fi
-if [ -z "$hits" ] || { ! grep -q "^VIOLATION" $out/check_$pid.txt && grep -q "no obligation was generated" $out/check_$pid.txt; }; then
-  (cd $V && python3 check.py $pid --tier $tier > $out/check_$pid.txt 2>$out/check_$pid.err; echo "exit=$? (tier $tier, full check; native sweep flagged nothing the restricted runs could decide)" >> $out/check_$pid.txt)
-fi
-sif [ -n "$hits" ]; then
-  (cd $V && VERIF_ONLY="$hits" python3 check.py $pid --tier $tier > $out/check_$pid.txt 2>$out/check_$pid.err; echo "exit=$? (tier $tier, restricted to the harnesses the native sweep flagged: $hits)" >> $out/check_$pid.txt)
-  if ! grep -q "^VIOLATION" $out/check_$pid.txt && [ "$tier" = quick ]; then
-    # the flagged harnesses may belong to the thorough tier only (larger bounds, slow ones)
-    (cd $V && VERIF_ONLY="$hits" python3 check.py $pid --tier thorough > $out/check_${pid}_thorough.txt 2>$out/check_${pid}_thorough.err; echo "exit=$? (tier thorough, restricted to the harnesses the native sweep flagged: $hits)" >> $out/check_${pid}_thorough.txt)
-    if grep -q "^VIOLATION" $out/check_${pid}_thorough.txt; then cp $out/check_${pid}_thorough.txt $out/check_$pid.txt; fi
-  fi
-fi
-if [ -z "$hits" ] || { ! grep -q "^VIOLATION" $out/check_$pid.txt && grep -q "no obligation was generated" $out/check_$pid.txt; }; then
-  (cd $V && python3 check.py $pid --tier $tier > $out/check_$pid.txt 2>$out/check_$pid.err; echo "exit=$? (tier $tier, full check; native sweep flagged nothing the restricted runs could decide)" >> $out/check_$pid.txt)
-fi
-)if [ -n "$hits" ]; then
-  (cd $V && VERIF_ONLY="$hits" python3 check.py $pid --tier $tier > $out/check_$pid.txt 2>$out/check_$pid.err; echo "exit=$? (tier $tier, restricted to the harnesses the native sweep flagged: $hits)" >> $out/check_$pid.txt)
-  if ! grep -q "^VIOLATION" $out/check_$pid.txt && [ "$tier" = quick ]; then
-    # the flagged harnesses may belong to the thorough tier only (larger bounds, slow ones)
-    (cd $V && VERIF_ONLY="$hits" python3 check.py $pid --tier thorough > $out/check_${pid}_thorough.txt 2>$out/check_${pid}_thorough.err; echo "exit=$? (tier thorough, restricted to the harnesses the native sweep flagged: $hits)" >> $out/check_${pid}_thorough.txt)
-    if grep -q "^VIOLATION" $out/check_${pid}_thorough.txt; then cp $out/check_${pid}_thorough.txt $out/check_$pid.txt; fi
-  fi
-fi
-if [ -z "$hits" ] || { ! grep -q "^VIOLATION" $out/check_$pid.txt && grep -q "no obligation was generated" $out/check_$pid.txt; }; then
-  (cd $V && python3 check.py $pid --tier $tier > $out/check_$pid.txt 2>$out/check_$pid.err; echo "exit=$? (tier $tier, full check; native sweep flagged nothing the restricted runs could decide)" >> $out/check_$pid.txt)
-fi
-"if [ -n "$hits" ]; then
-  (cd $V && VERIF_ONLY="$hits" python3 check.py $pid --tier $tier > $out/check_$pid.txt 2>$out/check_$pid.err; echo "exit=$? (tier $tier, restricted to the harnesses the native sweep flagged: $hits)" >> $out/check_$pid.txt)
-  if ! grep -q "^VIOLATION" $out/check_$pid.txt && [ "$tier" = quick ]; then
-    # the flagged harnesses may belong to the thorough tier only (larger bounds, slow ones)
-    (cd $V && VERIF_ONLY="$hits" python3 check.py $pid --tier thorough > $out/check_${pid}_thorough.txt 2>$out/check_${pid}_thorough.err; echo "exit=$? (tier thorough, restricted to the harnesses the native sweep flagged: $hits)" >> $out/check_${pid}_thorough.txt)
-    if grep -q "^VIOLATION" $out/check_${pid}_thorough.txt; then cp $out/check_${pid}_thorough.txt $out/check_$pid.txt; fi
-  fi
-fi
-if [ -z "$hits" ] || { ! grep -q "^VIOLATION" $out/check_$pid.txt && grep -q "no obligation was generated" $out/check_$pid.txt; }; then
-  (cd $V && python3 check.py $pid --tier $tier > $out/check_$pid.txt 2>$out/check_$pid.err; echo "exit=$? (tier $tier, full check; native sweep flagged nothing the restricted runs could decide)" >> $out/check_$pid.txt)
-fi
- if [ -n "$hits" ]; then
-  (cd $V && VERIF_ONLY="$hits" python3 check.py $pid --tier $tier > $out/check_$pid.txt 2>$out/check_$pid.err; echo "exit=$? (tier $tier, restricted to the harnesses the native sweep flagged: $hits)" >> $out/check_$pid.txt)
-  if ! grep -q "^VIOLATION" $out/check_$pid.txt && [ "$tier" = quick ]; then
-    # the flagged harnesses may belong to the thorough tier only (larger bounds, slow ones)
-    (cd $V && VERIF_ONLY="$hits" python3 check.py $pid --tier thorough > $out/check_${pid}_thorough.txt 2>$out/check_${pid}_thorough.err; echo "exit=$? (tier thorough, restricted to the harnesses the native sweep flagged: $hits)" >> $out/check_${pid}_thorough.txt)
-    if grep -q "^VIOLATION" $out/check_${pid}_thorough.txt; then cp $out/check_${pid}_thorough.txt $out/check_$pid.txt; fi
-  fi
-fi
-if [ -z "$hits" ] || { ! grep -q "^VIOLATION" $out/check_$pid.txt && grep -q "no obligation was generated" $out/check_$pid.txt; }; then
-  (cd $V && python3 check.py $pid --tier $tier > $out/check_$pid.txt 2>$out/check_$pid.err; echo "exit=$? (tier $tier, full check; native sweep flagged nothing the restricted runs could decide)" >> $out/check_$pid.txt)
-fi
->if [ -n "$hits" ]; then
-  (cd $V && VERIF_ONLY="$hits" python3 check.py $pid --tier $tier > $out/check_$pid.txt 2>$out/check_$pid.err; echo "exit=$? (tier $tier, restricted to the harnesses the native sweep flagged: $hits)" >> $out/check_$pid.txt)
-  if ! grep -q "^VIOLATION" $out/check_$pid.txt && [ "$tier" = quick ]; then
-    # the flagged harnesses may belong to the thorough tier only (larger bounds, slow ones)
-    (cd $V && VERIF_ONLY="$hits" python3 check.py $pid --tier thorough > $out/check_${pid}_thorough.txt 2>$out/check_${pid}_thorough.err; echo "exit=$? (tier thorough, restricted to the harnesses the native sweep flagged: $hits)" >> $out/check_${pid}_thorough.txt)
-    if grep -q "^VIOLATION" $out/check_${pid}_thorough.txt; then cp $out/check_${pid}_thorough.txt $out/check_$pid.txt; fi
-  fi
-fi
-if [ -z "$hits" ] || { ! grep -q "^VIOLATION" $out/check_$pid.txt && grep -q "no obligation was generated" $out/check_$pid.txt; }; then
-  (cd $V && python3 check.py $pid --tier $tier > $out/check_$pid.txt 2>$out/check_$pid.err; echo "exit=$? (tier $tier, full check; native sweep flagged nothing the restricted runs could decide)" >> $out/check_$pid.txt)
-fi
->if [ -n "$hits" ]; then
-  (cd $V && VERIF_ONLY="$hits" python3 check.py $pid --tier $tier > $out/check_$pid.txt 2>$out/check_$pid.err; echo "exit=$? (tier $tier, restricted to the harnesses the native sweep flagged: $hits)" >> $out/check_$pid.txt)
-  if ! grep -q "^VIOLATION" $out/check_$pid.txt && [ "$tier" = quick ]; then
-    # the flagged harnesses may belong to the thorough tier only (larger bounds, slow ones)
-    (cd $V && VERIF_ONLY="$hits" python3 check.py $pid --tier thorough > $out/check_${pid}_thorough.txt 2>$out/check_${pid}_thorough.err; echo "exit=$? (tier thorough, restricted to the harnesses the native sweep flagged: $hits)" >> $out/check_${pid}_thorough.txt)
-    if grep -q "^VIOLATION" $out/check_${pid}_thorough.txt; then cp $out/check_${pid}_thorough.txt $out/check_$pid.txt; fi
-  fi
-fi
-if [ -z "$hits" ] || { ! grep -q "^VIOLATION" $out/check_$pid.txt && grep -q "no obligation was generated" $out/check_$pid.txt; }; then
-  (cd $V && python3 check.py $pid --tier $tier > $out/check_$pid.txt 2>$out/check_$pid.err; echo "exit=$? (tier $tier, full check; native sweep flagged nothing the restricted runs could decide)" >> $out/check_$pid.txt)
-fi
- if [ -n "$hits" ]; then
-  (cd $V && VERIF_ONLY="$hits" python3 check.py $pid --tier $tier > $out/check_$pid.txt 2>$out/check_$pid.err; echo "exit=$? (tier $tier, restricted to the harnesses the native sweep flagged: $hits)" >> $out/check_$pid.txt)
-  if ! grep -q "^VIOLATION" $out/check_$pid.txt && [ "$tier" = quick ]; then
-    # the flagged harnesses may belong to the thorough tier only (larger bounds, slow ones)
-    (cd $V && VERIF_ONLY="$hits" python3 check.py $pid --tier thorough > $out/check_${pid}_thorough.txt 2>$out/check_${pid}_thorough.err; echo "exit=$? (tier thorough, restricted to the harnesses the native sweep flagged: $hits)" >> $out/check_${pid}_thorough.txt)
-    if grep -q "^VIOLATION" $out/check_${pid}_thorough.txt; then cp $out/check_${pid}_thorough.txt $out/check_$pid.txt; fi
-  fi
-fi
-if [ -z "$hits" ] || { ! grep -q "^VIOLATION" $out/check_$pid.txt && grep -q "no obligation was generated" $out/check_$pid.txt; }; then
-  (cd $V && python3 check.py $pid --tier $tier > $out/check_$pid.txt 2>$out/check_$pid.err; echo "exit=$? (tier $tier, full check; native sweep flagged nothing the restricted runs could decide)" >> $out/check_$pid.txt)
-fi
-$if [ -n "$hits" ]; then
-  (cd $V && VERIF_ONLY="$hits" python3 check.py $pid --tier $tier > $out/check_$pid.txt 2>$out/check_$pid.err; echo "exit=$? (tier $tier, restricted to the harnesses the native sweep flagged: $hits)" >> $out/check_$pid.txt)
-  if ! grep -q "^VIOLATION" $out/check_$pid.txt && [ "$tier" = quick ]; then
-    # the flagged harnesses may belong to the thorough tier only (larger bounds, slow ones)
-    (cd $V && VERIF_ONLY="$hits" python3 check.py $pid --tier thorough > $out/check_${pid}_thorough.txt 2>$out/check_${pid}_thorough.err; echo "exit=$? (tier thorough, restricted to the harnesses the native sweep flagged: $hits)" >> $out/check_${pid}_thorough.txt)
-    if grep -q "^VIOLATION" $out/check_${pid}_thorough.txt; then cp $out/check_${pid}_thorough.txt $out/check_$pid.txt; fi
-  fi
-fi
-if [ -z "$hits" ] || { ! grep -q "^VIOLATION" $out/check_$pid.txt && grep -q "no obligation was generated" $out/check_$pid.txt; }; then
-  (cd $V && python3 check.py $pid --tier $tier > $out/check_$pid.txt 2>$out/check_$pid.err; echo "exit=$? (tier $tier, full check; native sweep flagged nothing the restricted runs could decide)" >> $out/check_$pid.txt)
-fi
-oif [ -n "$hits" ]; then
-  (cd $V && VERIF_ONLY="$hits" python3 check.py $pid --tier $tier > $out/check_$pid.txt 2>$out/check_$pid.err; echo "exit=$? (tier $tier, restricted to the harnesses the native sweep flagged: $hits)" >> $out/check_$pid.txt)
-  if ! grep -q "^VIOLATION" $out/check_$pid.txt && [ "$tier" = quick ]; then
-    # the flagged harnesses may belong to the thorough tier only (larger bounds, slow ones)
-    (cd $V && VERIF_ONLY="$hits" python3 check.py $pid --tier thorough > $out/check_${pid}_thorough.txt 2>$out/check_${pid}_thorough.err; echo "exit=$? (tier thorough, restricted to the harnesses the native sweep flagged: $hits)" >> $out/check_${pid}_thorough.txt)
-    if grep -q "^VIOLATION" $out/check_${pid}_thorough.txt; then cp $out/check_${pid}_thorough.txt $out/check_$pid.txt; fi
-  fi
-fi
-if [ -z "$hits" ] || { ! grep -q "^VIOLATION" $out/check_$pid.txt && grep -q "no obligation was generated" $out/check_$pid.txt; }; then
-  (cd $V && python3 check.py $pid --tier $tier > $out/check_$pid.txt 2>$out/check_$pid.err; echo "exit=$? (tier $tier, full check; native sweep flagged nothing the restricted runs could decide)" >> $out/check_$pid.txt)
-fi
-uif [ -n "$hits" ]; then
-  (cd $V && VERIF_ONLY="$hits" python3 check.py $pid --tier $tier > $out/check_$pid.txt 2>$out/check_$pid.err; echo "exit=$? (tier $tier, restricted to the harnesses the native sweep flagged: $hits)" >> $out/check_$pid.txt)
-  if ! grep -q "^VIOLATION" $out/check_$pid.txt && [ "$tier" = quick ]; then
-    # the flagged harnesses may belong to the thorough tier only (larger bounds, slow ones)
-    (cd $V && VERIF_ONLY="$hits" python3 check.py $pid --tier thorough > $out/check_${pid}_thorough.txt 2>$out/check_${pid}_thorough.err; echo "exit=$? (tier thorough, restricted to the harnesses the native sweep flagged: $hits)" >> $out/check_${pid}_thorough.txt)
-    if grep -q "^VIOLATION" $out/check_${pid}_thorough.txt; then cp $out/check_${pid}_thorough.txt $out/check_$pid.txt; fi
-  fi
-fi
-if [ -z "$hits" ] || { ! grep -q "^VIOLATION" $out/check_$pid.txt && grep -q "no obligation was generated" $out/check_$pid.txt; }; then
-  (cd $V && python3 check.py $pid --tier $tier > $out/check_$pid.txt 2>$out/check_$pid.err; echo "exit=$? (tier $tier, full check; native sweep flagged nothing the restricted runs could decide)" >> $out/check_$pid.txt)
-fi
-tif [ -n "$hits" ]; then
-  (cd $V && VERIF_ONLY="$hits" python3 check.py $pid --tier $tier > $out/check_$pid.txt 2>$out/check_$pid.err; echo "exit=$? (tier $tier, restricted to the harnesses the native sweep flagged: $hits)" >> $out/check_$pid.txt)
-  if ! grep -q "^VIOLATION" $out/check_$pid.txt && [ "$tier" = quick ]; then
-    # the flagged harnesses may belong to the thorough tier only (larger bounds, slow ones)
-    (cd $V && VERIF_ONLY="$hits" python3 check.py $pid --tier thorough > $out/check_${pid}_thorough.txt 2>$out/check_${pid}_thorough.err; echo "exit=$? (tier thorough, restricted to the harnesses the native sweep flagged: $hits)" >> $out/check_${pid}_thorough.txt)
-    if grep -q "^VIOLATION" $out/check_${pid}_thorough.txt; then cp $out/check_${pid}_thorough.txt $out/check_$pid.txt; fi
-  fi
-fi
-if [ -z "$hits" ] || { ! grep -q "^VIOLATION" $out/check_$pid.txt && grep -q "no obligation was generated" $out/check_$pid.txt; }; then
-  (cd $V && python3 check.py $pid --tier $tier > $out/check_$pid.txt 2>$out/check_$pid.err; echo "exit=$? (tier $tier, full check; native sweep flagged nothing the restricted runs could decide)" >> $out/check_$pid.txt)
-fi
-/if [ -n "$hits" ]; then
-  (cd $V && VERIF_ONLY="$hits" python3 check.py $pid --tier $tier > $out/check_$pid.txt 2>$out/check_$pid.err; echo "exit=$? (tier $tier, restricted to the harnesses the native sweep flagged: $hits)" >> $out/check_$pid.txt)
-  if ! grep -q "^VIOLATION" $out/check_$pid.txt && [ "$tier" = quick ]; then
-    # the flagged harnesses may belong to the thorough tier only (larger bounds, slow ones)
-    (cd $V && VERIF_ONLY="$hits" python3 check.py $pid --tier thorough > $out/check_${pid}_thorough.txt 2>$out/check_${pid}_thorough.err; echo "exit=$? (tier thorough, restricted to the harnesses the native sweep flagged: $hits)" >> $out/check_${pid}_thorough.txt)
-    if grep -q "^VIOLATION" $out/check_${pid}_thorough.txt; then cp $out/check_${pid}_thorough.txt $out/check_$pid.txt; fi
-  fi
-fi
-if [ -z "$hits" ] || { ! grep -q "^VIOLATION" $out/check_$pid.txt && grep -q "no obligation was generated" $out/check_$pid.txt; }; then
-  (cd $V && python3 check.py $pid --tier $tier > $out/check_$pid.txt 2>$out/check_$pid.err; echo "exit=$? (tier $tier, full check; native sweep flagged nothing the restricted runs could decide)" >> $out/check_$pid.txt)
-fi
-cif [ -n "$hits" ]; then
-  (cd $V && VERIF_ONLY="$hits" python3 check.py $pid --tier $tier > $out/check_$pid.txt 2>$out/check_$pid.err; echo "exit=$? (tier $tier, restricted to the harnesses the native sweep flagged: $hits)" >> $out/check_$pid.txt)
-  if ! grep -q "^VIOLATION" $out/check_$pid.txt && [ "$tier" = quick ]; then
-    # the flagged harnesses may belong to the thorough tier only (larger bounds, slow ones)
-    (cd $V && VERIF_ONLY="$hits" python3 check.py $pid --tier thorough > $out/check_${pid}_thorough.txt 2>$out/check_${pid}_thorough.err; echo "exit=$? (tier thorough, restricted to the harnesses the native sweep flagged: $hits)" >> $out/check_${pid}_thorough.txt)
-    if grep -q "^VIOLATION" $out/check_${pid}_thorough.txt; then cp $out/check_${pid}_thorough.txt $out/check_$pid.txt; fi
-  fi
-fi
-if [ -z "$hits" ] || { ! grep -q "^VIOLATION" $out/check_$pid.txt && grep -q "no obligation was generated" $out/check_$pid.txt; }; then
-  (cd $V && python3 check.py $pid --tier $tier > $out/check_$pid.txt 2>$out/check_$pid.err; echo "exit=$? (tier $tier, full check; native sweep flagged nothing the restricted runs could decide)" >> $out/check_$pid.txt)
-fi
-hif [ -n "$hits" ]; then
-  (cd $V && VERIF_ONLY="$hits" python3 check.py $pid --tier $tier > $out/check_$pid.txt 2>$out/check_$pid.err; echo "exit=$? (tier $tier, restricted to the harnesses the native sweep flagged: $hits)" >> $out/check_$pid.txt)
-  if ! grep -q "^VIOLATION" $out/check_$pid.txt && [ "$tier" = quick ]; then
-    # the flagged harnesses may belong to the thorough tier only (larger bounds, slow ones)
-    (cd $V && VERIF_ONLY="$hits" python3 check.py $pid --tier thorough > $out/check_${pid}_thorough.txt 2>$out/check_${pid}_thorough.err; echo "exit=$? (tier thorough, restricted to the harnesses the native sweep flagged: $hits)" >> $out/check_${pid}_thorough.txt)
-    if grep -q "^VIOLATION" $out/check_${pid}_thorough.txt; then cp $out/check_${pid}_thorough.txt $out/check_$pid.txt; fi
-  fi
-fi
-if [ -z "$hits" ] || { ! grep -q "^VIOLATION" $out/check_$pid.txt && grep -q "no obligation was generated" $out/check_$pid.txt; }; then
-  (cd $V && python3 check.py $pid --tier $tier > $out/check_$pid.txt 2>$out/check_$pid.err; echo "exit=$? (tier $tier, full check; native sweep flagged nothing the restricted runs could decide)" >> $out/check_$pid.txt)
-fi
-eif [ -n "$hits" ]; then
-  (cd $V && VERIF_ONLY="$hits" python3 check.py $pid --tier $tier > $out/check_$pid.txt 2>$out/check_$pid.err; echo "exit=$? (tier $tier, restricted to the harnesses the native sweep flagged: $hits)" >> $out/check_$pid.txt)
-  if ! grep -q "^VIOLATION" $out/check_$pid.txt && [ "$tier" = quick ]; then
-    # the flagged harnesses may belong to the thorough tier only (larger bounds, slow ones)
-    (cd $V && VERIF_ONLY="$hits" python3 check.py $pid --tier thorough > $out/check_${pid}_thorough.txt 2>$out/check_${pid}_thorough.err; echo "exit=$? (tier thorough, restricted to the harnesses the native sweep flagged: $hits)" >> $out/check_${pid}_thorough.txt)
-    if grep -q "^VIOLATION" $out/check_${pid}_thorough.txt; then cp $out/check_${pid}_thorough.txt $out/check_$pid.txt; fi
-  fi
-fi
-if [ -z "$hits" ] || { ! grep -q "^VIOLATION" $out/check_$pid.txt && grep -q "no obligation was generated" $out/check_$pid.txt; }; then
-  (cd $V && python3 check.py $pid --tier $tier > $out/check_$pid.txt 2>$out/check_$pid.err; echo "exit=$? (tier $tier, full check; native sweep flagged nothing the restricted runs could decide)" >> $out/check_$pid.txt)
-fi
-cif [ -n "$hits" ]; then
-  (cd $V && VERIF_ONLY="$hits" python3 check.py $pid --tier $tier > $out/check_$pid.txt 2>$out/check_$pid.err; echo "exit=$? (tier $tier, restricted to the harnesses the native sweep flagged: $hits)" >> $out/check_$pid.txt)
-  if ! grep -q "^VIOLATION" $out/check_$pid.txt && [ "$tier" = quick ]; then
-    # the flagged harnesses may belong to the thorough tier only (larger bounds, slow ones)
-    (cd $V && VERIF_ONLY="$hits" python3 check.py $pid --tier thorough > $out/check_${pid}_thorough.txt 2>$out/check_${pid}_thorough.err; echo "exit=$? (tier thorough, restricted to the harnesses the native sweep flagged: $hits)" >> $out/check_${pid}_thorough.txt)
-    if grep -q "^VIOLATION" $out/check_${pid}_thorough.txt; then cp $out/check_${pid}_thorough.txt $out/check_$pid.txt; fi
-  fi
-fi
-if [ -z "$hits" ] || { ! grep -q "^VIOLATION" $out/check_$pid.txt && grep -q "no obligation was generated" $out/check_$pid.txt; }; then
-  (cd $V && python3 check.py $pid --tier $tier > $out/check_$pid.txt 2>$out/check_$pid.err; echo "exit=$? (tier $tier, full check; native sweep flagged nothing the restricted runs could decide)" >> $out/check_$pid.txt)
-fi
-kif [ -n "$hits" ]; then
-  (cd $V && VERIF_ONLY="$hits" python3 check.py $pid --tier $tier > $out/check_$pid.txt 2>$out/check_$pid.err; echo "exit=$? (tier $tier, restricted to the harnesses the native sweep flagged: $hits)" >> $out/check_$pid.txt)
-  if ! grep -q "^VIOLATION" $out/check_$pid.txt && [ "$tier" = quick ]; then
-    # the flagged harnesses may belong to the thorough tier only (larger bounds, slow ones)
-    (cd $V && VERIF_ONLY="$hits" python3 check.py $pid --tier thorough > $out/check_${pid}_thorough.txt 2>$out/check_${pid}_thorough.err; echo "exit=$? (tier thorough, restricted to the harnesses the native sweep flagged: $hits)" >> $out/check_${pid}_thorough.txt)
-    if grep -q "^VIOLATION" $out/check_${pid}_thorough.txt; then cp $out/check_${pid}_thorough.txt $out/check_$pid.txt; fi
-  fi
-fi
-if [ -z "$hits" ] || { ! grep -q "^VIOLATION" $out/check_$pid.txt && grep -q "no obligation was generated" $out/check_$pid.txt; }; then
-  (cd $V && python3 check.py $pid --tier $tier > $out/check_$pid.txt 2>$out/check_$pid.err; echo "exit=$? (tier $tier, full check; native sweep flagged nothing the restricted runs could decide)" >> $out/check_$pid.txt)
-fi
-_if [ -n "$hits" ]; then
-  (cd $V && VERIF_ONLY="$hits" python3 check.py $pid --tier $tier > $out/check_$pid.txt 2>$out/check_$pid.err; echo "exit=$? (tier $tier, restricted to the harnesses the native sweep flagged: $hits)" >> $out/check_$pid.txt)
-  if ! grep -q "^VIOLATION" $out/check_$pid.txt && [ "$tier" = quick ]; then
-    # the flagged harnesses may belong to the thorough tier only (larger bounds, slow ones)
-    (cd $V && VERIF_ONLY="$hits" python3 check.py $pid --tier thorough > $out/check_${pid}_thorough.txt 2>$out/check_${pid}_thorough.err; echo "exit=$? (tier thorough, restricted to the harnesses the native sweep flagged: $hits)" >> $out/check_${pid}_thorough.txt)
-    if grep -q "^VIOLATION" $out/check_${pid}_thorough.txt; then cp $out/check_${pid}_thorough.txt $out/check_$pid.txt; fi
-  fi
-fi
-if [ -z "$hits" ] || { ! grep -q "^VIOLATION" $out/check_$pid.txt && grep -q "no obligation was generated" $out/check_$pid.txt; }; then
-  (cd $V && python3 check.py $pid --tier $tier > $out/check_$pid.txt 2>$out/check_$pid.err; echo "exit=$? (tier $tier, full check; native sweep flagged nothing the restricted runs could decide)" >> $out/check_$pid.txt)
-fi
-$if [ -n "$hits" ]; then
-  (cd $V && VERIF_ONLY="$hits" python3 check.py $pid --tier $tier > $out/check_$pid.txt 2>$out/check_$pid.err; echo "exit=$? (tier $tier, restricted to the harnesses the native sweep flagged: $hits)" >> $out/check_$pid.txt)
-  if ! grep -q "^VIOLATION" $out/check_$pid.txt && [ "$tier" = quick ]; then
-    # the flagged harnesses may belong to the thorough tier only (larger bounds, slow ones)
-    (cd $V && VERIF_ONLY="$hits" python3 check.py $pid --tier thorough > $out/check_${pid}_thorough.txt 2>$out/check_${pid}_thorough.err; echo "exit=$? (tier thorough, restricted to the harnesses the native sweep flagged: $hits)" >> $out/check_${pid}_thorough.txt)
-    if grep -q "^VIOLATION" $out/check_${pid}_thorough.txt; then cp $out/check_${pid}_thorough.txt $out/check_$pid.txt; fi
-  fi
-fi
-if [ -z "$hits" ] || { ! grep -q "^VIOLATION" $out/check_$pid.txt && grep -q "no obligation was generated" $out/check_$pid.txt; }; then
-  (cd $V && python3 check.py $pid --tier $tier > $out/check_$pid.txt 2>$out/check_$pid.err; echo "exit=$? (tier $tier, full check; native sweep flagged nothing the restricted runs could decide)" >> $out/check_$pid.txt)
-fi
-pif [ -n "$hits" ]; then
-  (cd $V && VERIF_ONLY="$hits" python3 check.py $pid --tier $tier > $out/check_$pid.txt 2>$out/check_$pid.err; echo "exit=$? (tier $tier, restricted to the harnesses the native sweep flagged: $hits)" >> $out/check_$pid.txt)
-  if ! grep -q "^VIOLATION" $out/check_$pid.txt && [ "$tier" = quick ]; then
-    # the flagged harnesses may belong to the thorough tier only (larger bounds, slow ones)
-    (cd $V && VERIF_ONLY="$hits" python3 check.py $pid --tier thorough > $out/check_${pid}_thorough.txt 2>$out/check_${pid}_thorough.err; echo "exit=$? (tier thorough, restricted to the harnesses the native sweep flagged: $hits)" >> $out/check_${pid}_thorough.txt)
-    if grep -q "^VIOLATION" $out/check_${pid}_thorough.txt; then cp $out/check_${pid}_thorough.txt $out/check_$pid.txt; fi
-  fi
-fi
-if [ -z "$hits" ] || { ! grep -q "^VIOLATION" $out/check_$pid.txt && grep -q "no obligation was generated" $out/check_$pid.txt; }; then
-  (cd $V && python3 check.py $pid --tier $tier > $out/check_$pid.txt 2>$out/check_$pid.err; echo "exit=$? (tier $tier, full check; native sweep flagged nothing the restricted runs could decide)" >> $out/check_$pid.txt)
-fi
-iif [ -n "$hits" ]; then
-  (cd $V && VERIF_ONLY="$hits" python3 check.py $pid --tier $tier > $out/check_$pid.txt 2>$out/check_$pid.err; echo "exit=$? (tier $tier, restricted to the harnesses the native sweep flagged: $hits)" >> $out/check_$pid.txt)
-  if ! grep -q "^VIOLATION" $out/check_$pid.txt && [ "$tier" = quick ]; then
-    # the flagged harnesses may belong to the thorough tier only (larger bounds, slow ones)
-    (cd $V && VERIF_ONLY="$hits" python3 check.py $pid --tier thorough > $out/check_${pid}_thorough.txt 2>$out/check_${pid}_thorough.err; echo "exit=$? (tier thorough, restricted to the harnesses the native sweep flagged: $hits)" >> $out/check_${pid}_thorough.txt)
-    if grep -q "^VIOLATION" $out/check_${pid}_thorough.txt; then cp $out/check_${pid}_thorough.txt $out/check_$pid.txt; fi
-  fi
-fi
-if [ -z "$hits" ] || { ! grep -q "^VIOLATION" $out/check_$pid.txt && grep -q "no obligation was generated" $out/check_$pid.txt; }; then
-  (cd $V && python3 check.py $pid --tier $tier > $out/check_$pid.txt 2>$out/check_$pid.err; echo "exit=$? (tier $tier, full check; native sweep flagged nothing the restricted runs could decide)" >> $out/check_$pid.txt)
-fi
-dif [ -n "$hits" ]; then
-  (cd $V && VERIF_ONLY="$hits" python3 check.py $pid --tier $tier > $out/check_$pid.txt 2>$out/check_$pid.err; echo "exit=$? (tier $tier, restricted to the harnesses the native sweep flagged: $hits)" >> $out/check_$pid.txt)
-  if ! grep -q "^VIOLATION" $out/check_$pid.txt && [ "$tier" = quick ]; then
-    # the flagged harnesses may belong to the thorough tier only (larger bounds, slow ones)
-    (cd $V && VERIF_ONLY="$hits" python3 check.py $pid --tier thorough > $out/check_${pid}_thorough.txt 2>$out/check_${pid}_thorough.err; echo "exit=$? (tier thorough, restricted to the harnesses the native sweep flagged: $hits)" >> $out/check_${pid}_thorough.txt)
-    if grep -q "^VIOLATION" $out/check_${pid}_thorough.txt; then cp $out/check_${pid}_thorough.txt $out/check_$pid.txt; fi
-  fi
-fi
-if [ -z "$hits" ] || { ! grep -q "^VIOLATION" $out/check_$pid.txt && grep -q "no obligation was generated" $out/check_$pid.txt; }; then
-  (cd $V && python3 check.py $pid --tier $tier > $out/check_$pid.txt 2>$out/check_$pid.err; echo "exit=$? (tier $tier, full check; native sweep flagged nothing the restricted runs could decide)" >> $out/check_$pid.txt)
-fi
-.if [ -n "$hits" ]; then
-  (cd $V && VERIF_ONLY="$hits" python3 check.py $pid --tier $tier > $out/check_$pid.txt 2>$out/check_$pid.err; echo "exit=$? (tier $tier, restricted to the harnesses the native sweep flagged: $hits)" >> $out/check_$pid.txt)
-  if ! grep -q "^VIOLATION" $out/check_$pid.txt && [ "$tier" = quick ]; then
-    # the flagged harnesses may belong to the thorough tier only (larger bounds, slow ones)
-    (cd $V && VERIF_ONLY="$hits" python3 check.py $pid --tier thorough > $out/check_${pid}_thorough.txt 2>$out/check_${pid}_thorough.err; echo "exit=$? (tier thorough, restricted to the harnesses the native sweep flagged: $hits)" >> $out/check_${pid}_thorough.txt)
-    if grep -q "^VIOLATION" $out/check_${pid}_thorough.txt; then cp $out/check_${pid}_thorough.txt $out/check_$pid.txt; fi
-  fi
-fi
-if [ -z "$hits" ] || { ! grep -q "^VIOLATION" $out/check_$pid.txt && grep -q "no obligation was generated" $out/check_$pid.txt; }; then
-  (cd $V && python3 check.py $pid --tier $tier > $out/check_$pid.txt 2>$out/check_$pid.err; echo "exit=$? (tier $tier, full check; native sweep flagged nothing the restricted runs could decide)" >> $out/check_$pid.txt)
-fi
-tif [ -n "$hits" ]; then
-  (cd $V && VERIF_ONLY="$hits" python3 check.py $pid --tier $tier > $out/check_$pid.txt 2>$out/check_$pid.err; echo "exit=$? (tier $tier, restricted to the harnesses the native sweep flagged: $hits)" >> $out/check_$pid.txt)
-  if ! grep -q "^VIOLATION" $out/check_$pid.txt && [ "$tier" = quick ]; then
-    # the flagged harnesses may belong to the thorough tier only (larger bounds, slow ones)
-    (cd $V && VERIF_ONLY="$hits" python3 check.py $pid --tier thorough > $out/check_${pid}_thorough.txt 2>$out/check_${pid}_thorough.err; echo "exit=$? (tier thorough, restricted to the harnesses the native sweep flagged: $hits)" >> $out/check_${pid}_thorough.txt)
-    if grep -q "^VIOLATION" $out/check_${pid}_thorough.txt; then cp $out/check_${pid}_thorough.txt $out/check_$pid.txt; fi
-  fi
-fi
-if [ -z "$hits" ] || { ! grep -q "^VIOLATION" $out/check_$pid.txt && grep -q "no obligation was generated" $out/check_$pid.txt; }; then
-  (cd $V && python3 check.py $pid --tier $tier > $out/check_$pid.txt 2>$out/check_$pid.err; echo "exit=$? (tier $tier, full check; native sweep flagged nothing the restricted runs could decide)" >> $out/check_$pid.txt)
-fi
-xif [ -n "$hits" ]; then
-  (cd $V && VERIF_ONLY="$hits" python3 check.py $pid --tier $tier > $out/check_$pid.txt 2>$out/check_$pid.err; echo "exit=$? (tier $tier, restricted to the harnesses the native sweep flagged: $hits)" >> $out/check_$pid.txt)
-  if ! grep -q "^VIOLATION" $out/check_$pid.txt && [ "$tier" = quick ]; then
-    # the flagged harnesses may belong to the thorough tier only (larger bounds, slow ones)
-    (cd $V && VERIF_ONLY="$hits" python3 check.py $pid --tier thorough > $out/check_${pid}_thorough.txt 2>$out/check_${pid}_thorough.err; echo "exit=$? (tier thorough, restricted to the harnesses the native sweep flagged: $hits)" >> $out/check_${pid}_thorough.txt)
-    if grep -q "^VIOLATION" $out/check_${pid}_thorough.txt; then cp $out/check_${pid}_thorough.txt $out/check_$pid.txt; fi
-  fi
-fi
-if [ -z "$hits" ] || { ! grep -q "^VIOLATION" $out/check_$pid.txt && grep -q "no obligation was generated" $out/check_$pid.txt; }; then
-  (cd $V && python3 check.py $pid --tier $tier > $out/check_$pid.txt 2>$out/check_$pid.err; echo "exit=$? (tier $tier, full check; native sweep flagged nothing the restricted runs could decide)" >> $out/check_$pid.txt)
-fi
-tif [ -n "$hits" ]; then
-  (cd $V && VERIF_ONLY="$hits" python3 check.py $pid --tier $tier > $out/check_$pid.txt 2>$out/check_$pid.err; echo "exit=$? (tier $tier, restricted to the harnesses the native sweep flagged: $hits)" >> $out/check_$pid.txt)
-  if ! grep -q "^VIOLATION" $out/check_$pid.txt && [ "$tier" = quick ]; then
-    # the flagged harnesses may belong to the thorough tier only (larger bounds, slow ones)
-    (cd $V && VERIF_ONLY="$hits" python3 check.py $pid --tier thorough > $out/check_${pid}_thorough.txt 2>$out/check_${pid}_thorough.err; echo "exit=$? (tier thorough, restricted to the harnesses the native sweep flagged: $hits)" >> $out/check_${pid}_thorough.txt)
-    if grep -q "^VIOLATION" $out/check_${pid}_thorough.txt; then cp $out/check_${pid}_thorough.txt $out/check_$pid.txt; fi
-  fi
-fi
-if [ -z "$hits" ] || { ! grep -q "^VIOLATION" $out/check_$pid.txt && grep -q "no obligation was generated" $out/check_$pid.txt; }; then
-  (cd $V && python3 check.py $pid --tier $tier > $out/check_$pid.txt 2>$out/check_$pid.err; echo "exit=$? (tier $tier, full check; native sweep flagged nothing the restricted runs could decide)" >> $out/check_$pid.txt)
-fi
-)if [ -n "$hits" ]; then
-  (cd $V && VERIF_ONLY="$hits" python3 check.py $pid --tier $tier > $out/check_$pid.txt 2>$out/check_$pid.err; echo "exit=$? (tier $tier, restricted to the harnesses the native sweep flagged: $hits)" >> $out/check_$pid.txt)
-  if ! grep -q "^VIOLATION" $out/check_$pid.txt && [ "$tier" = quick ]; then
-    # the flagged harnesses may belong to the thorough tier only (larger bounds, slow ones)
-    (cd $V && VERIF_ONLY="$hits" python3 check.py $pid --tier thorough > $out/check_${pid}_thorough.txt 2>$out/check_${pid}_thorough.err; echo "exit=$? (tier thorough, restricted to the harnesses the native sweep flagged: $hits)" >> $out/check_${pid}_thorough.txt)
-    if grep -q "^VIOLATION" $out/check_${pid}_thorough.txt; then cp $out/check_${pid}_thorough.txt $out/check_$pid.txt; fi
-  fi
-fi
-if [ -z "$hits" ] || { ! grep -q "^VIOLATION" $out/check_$pid.txt && grep -q "no obligation was generated" $out/check_$pid.txt; }; then
-  (cd $V && python3 check.py $pid --tier $tier > $out/check_$pid.txt 2>$out/check_$pid.err; echo "exit=$? (tier $tier, full check; native sweep flagged nothing the restricted runs could decide)" >> $out/check_$pid.txt)
-fi
-
-if [ -n "$hits" ]; then
-  (cd $V && VERIF_ONLY="$hits" python3 check.py $pid --tier $tier > $out/check_$pid.txt 2>$out/check_$pid.err; echo "exit=$? (tier $tier, restricted to the harnesses the native sweep flagged: $hits)" >> $out/check_$pid.txt)
-  if ! grep -q "^VIOLATION" $out/check_$pid.txt && [ "$tier" = quick ]; then
-    # the flagged harnesses may belong to the thorough tier only (larger bounds, slow ones)
-    (cd $V && VERIF_ONLY="$hits" python3 check.py $pid --tier thorough > $out/check_${pid}_thorough.txt 2>$out/check_${pid}_thorough.err; echo "exit=$? (tier thorough, restricted to the harnesses the native sweep flagged: $hits)" >> $out/check_${pid}_thorough.txt)
-    if grep -q "^VIOLATION" $out/check_${pid}_thorough.txt; then cp $out/check_${pid}_thorough.txt $out/check_$pid.txt; fi
-  fi
-fi
-if [ -z "$hits" ] || { ! grep -q "^VIOLATION" $out/check_$pid.txt && grep -q "no obligation was generated" $out/check_$pid.txt; }; then
-  (cd $V && python3 check.py $pid --tier $tier > $out/check_$pid.txt 2>$out/check_$pid.err; echo "exit=$? (tier $tier, full check; native sweep flagged nothing the restricted runs could decide)" >> $out/check_$pid.txt)
-fi
-fif [ -n "$hits" ]; then
-  (cd $V && VERIF_ONLY="$hits" python3 check.py $pid --tier $tier > $out/check_$pid.txt 2>$out/check_$pid.err; echo "exit=$? (tier $tier, restricted to the harnesses the native sweep flagged: $hits)" >> $out/check_$pid.txt)
-  if ! grep -q "^VIOLATION" $out/check_$pid.txt && [ "$tier" = quick ]; then
-    # the flagged harnesses may belong to the thorough tier only (larger bounds, slow ones)
-    (cd $V && VERIF_ONLY="$hits" python3 check.py $pid --tier thorough > $out/check_${pid}_thorough.txt 2>$out/check_${pid}_thorough.err; echo "exit=$? (tier thorough, restricted to the harnesses the native sweep flagged: $hits)" >> $out/check_${pid}_thorough.txt)
-    if grep -q "^VIOLATION" $out/check_${pid}_thorough.txt; then cp $out/check_${pid}_thorough.txt $out/check_$pid.txt; fi
-  fi
-fi
-if [ -z "$hits" ] || { ! grep -q "^VIOLATION" $out/check_$pid.txt && grep -q "no obligation was generated" $out/check_$pid.txt; }; then
-  (cd $V && python3 check.py $pid --tier $tier > $out/check_$pid.txt 2>$out/check_$pid.err; echo "exit=$? (tier $tier, full check; native sweep flagged nothing the restricted runs could decide)" >> $out/check_$pid.txt)
-fi
-iif [ -n "$hits" ]; then
-  (cd $V && VERIF_ONLY="$hits" python3 check.py $pid --tier $tier > $out/check_$pid.txt 2>$out/check_$pid.err; echo "exit=$? (tier $tier, restricted to the harnesses the native sweep flagged: $hits)" >> $out/check_$pid.txt)
-  if ! grep -q "^VIOLATION" $out/check_$pid.txt && [ "$tier" = quick ]; then
-    # the flagged harnesses may belong to the thorough tier only (larger bounds, slow ones)
-    (cd $V && VERIF_ONLY="$hits" python3 check.py $pid --tier thorough > $out/check_${pid}_thorough.txt 2>$out/check_${pid}_thorough.err; echo "exit=$? (tier thorough, restricted to the harnesses the native sweep flagged: $hits)" >> $out/check_${pid}_thorough.txt)
-    if grep -q "^VIOLATION" $out/check_${pid}_thorough.txt; then cp $out/check_${pid}_thorough.txt $out/check_$pid.txt; fi
-  fi
-fi
-if [ -z "$hits" ] || { ! grep -q "^VIOLATION" $out/check_$pid.txt && grep -q "no obligation was generated" $out/check_$pid.txt; }; then
-  (cd $V && python3 check.py $pid --tier $tier > $out/check_$pid.txt 2>$out/check_$pid.err; echo "exit=$? (tier $tier, full check; native sweep flagged nothing the restricted runs could decide)" >> $out/check_$pid.txt)
-fi
-
-if [ -n "$hits" ]; then
-  (cd $V && VERIF_ONLY="$hits" python3 check.py $pid --tier $tier > $out/check_$pid.txt 2>$out/check_$pid.err; echo "exit=$? (tier $tier, restricted to the harnesses the native sweep flagged: $hits)" >> $out/check_$pid.txt)
-  if ! grep -q "^VIOLATION" $out/check_$pid.txt && [ "$tier" = quick ]; then
-    # the flagged harnesses may belong to the thorough tier only (larger bounds, slow ones)
-    (cd $V && VERIF_ONLY="$hits" python3 check.py $pid --tier thorough > $out/check_${pid}_thorough.txt 2>$out/check_${pid}_thorough.err; echo "exit=$? (tier thorough, restricted to the harnesses the native sweep flagged: $hits)" >> $out/check_${pid}_thorough.txt)
-    if grep -q "^VIOLATION" $out/check_${pid}_thorough.txt; then cp $out/check_${pid}_thorough.txt $out/check_$pid.txt; fi
-  fi
-fi
-if [ -z "$hits" ] || { ! grep -q "^VIOLATION" $out/check_$pid.txt && grep -q "no obligation was generated" $out/check_$pid.txt; }; then
-  (cd $V && python3 check.py $pid --tier $tier > $out/check_$pid.txt 2>$out/check_$pid.err; echo "exit=$? (tier $tier, full check; native sweep flagged nothing the restricted runs could decide)" >> $out/check_$pid.txt)
-fi
-iif [ -n "$hits" ]; then
-  (cd $V && VERIF_ONLY="$hits" python3 check.py $pid --tier $tier > $out/check_$pid.txt 2>$out/check_$pid.err; echo "exit=$? (tier $tier, restricted to the harnesses the native sweep flagged: $hits)" >> $out/check_$pid.txt)
-  if ! grep -q "^VIOLATION" $out/check_$pid.txt && [ "$tier" = quick ]; then
-    # the flagged harnesses may belong to the thorough tier only (larger bounds, slow ones)
-    (cd $V && VERIF_ONLY="$hits" python3 check.py $pid --tier thorough > $out/check_${pid}_thorough.txt 2>$out/check_${pid}_thorough.err; echo "exit=$? (tier thorough, restricted to the harnesses the native sweep flagged: $hits)" >> $out/check_${pid}_thorough.txt)
-    if grep -q "^VIOLATION" $out/check_${pid}_thorough.txt; then cp $out/check_${pid}_thorough.txt $out/check_$pid.txt; fi
-  fi
-fi
-if [ -z "$hits" ] || { ! grep -q "^VIOLATION" $out/check_$pid.txt && grep -q "no obligation was generated" $out/check_$pid.txt; }; then
-  (cd $V && python3 check.py $pid --tier $tier > $out/check_$pid.txt 2>$out/check_$pid.err; echo "exit=$? (tier $tier, full check; native sweep flagged nothing the restricted runs could decide)" >> $out/check_$pid.txt)
-fi
-fif [ -n "$hits" ]; then
-  (cd $V && VERIF_ONLY="$hits" python3 check.py $pid --tier $tier > $out/check_$pid.txt 2>$out/check_$pid.err; echo "exit=$? (tier $tier, restricted to the harnesses the native sweep flagged: $hits)" >> $out/check_$pid.txt)
-  if ! grep -q "^VIOLATION" $out/check_$pid.txt && [ "$tier" = quick ]; then
-    # the flagged harnesses may belong to the thorough tier only (larger bounds, slow ones)
-    (cd $V && VERIF_ONLY="$hits" python3 check.py $pid --tier thorough > $out/check_${pid}_thorough.txt 2>$out/check_${pid}_thorough.err; echo "exit=$? (tier thorough, restricted to the harnesses the native sweep flagged: $hits)" >> $out/check_${pid}_thorough.txt)
-    if grep -q "^VIOLATION" $out/check_${pid}_thorough.txt; then cp $out/check_${pid}_thorough.txt $out/check_$pid.txt; fi
-  fi
-fi
-if [ -z "$hits" ] || { ! grep -q "^VIOLATION" $out/check_$pid.txt && grep -q "no obligation was generated" $out/check_$pid.txt; }; then
-  (cd $V && python3 check.py $pid --tier $tier > $out/check_$pid.txt 2>$out/check_$pid.err; echo "exit=$? (tier $tier, full check; native sweep flagged nothing the restricted runs could decide)" >> $out/check_$pid.txt)
-fi
- if [ -n "$hits" ]; then
-  (cd $V && VERIF_ONLY="$hits" python3 check.py $pid --tier $tier > $out/check_$pid.txt 2>$out/check_$pid.err; echo "exit=$? (tier $tier, restricted to the harnesses the native sweep flagged: $hits)" >> $out/check_$pid.txt)
-  if ! grep -q "^VIOLATION" $out/check_$pid.txt && [ "$tier" = quick ]; then
-    # the flagged harnesses may belong to the thorough tier only (larger bounds, slow ones)
-    (cd $V && VERIF_ONLY="$hits" python3 check.py $pid --tier thorough > $out/check_${pid}_thorough.txt 2>$out/check_${pid}_thorough.err; echo "exit=$? (tier thorough, restricted to the harnesses the native sweep flagged: $hits)" >> $out/check_${pid}_thorough.txt)
-    if grep -q "^VIOLATION" $out/check_${pid}_thorough.txt; then cp $out/check_${pid}_thorough.txt $out/check_$pid.txt; fi
-  fi
-fi
-if [ -z "$hits" ] || { ! grep -q "^VIOLATION" $out/check_$pid.txt && grep -q "no obligation was generated" $out/check_$pid.txt; }; then
-  (cd $V && python3 check.py $pid --tier $tier > $out/check_$pid.txt 2>$out/check_$pid.err; echo "exit=$? (tier $tier, full check; native sweep flagged nothing the restricted runs could decide)" >> $out/check_$pid.txt)
-fi
-[if [ -n "$hits" ]; then
-  (cd $V && VERIF_ONLY="$hits" python3 check.py $pid --tier $tier > $out/check_$pid.txt 2>$out/check_$pid.err; echo "exit=$? (tier $tier, restricted to the harnesses the native sweep flagged: $hits)" >> $out/check_$pid.txt)
-  if ! grep -q "^VIOLATION" $out/check_$pid.txt && [ "$tier" = quick ]; then
-    # the flagged harnesses may belong to the thorough tier only (larger bounds, slow ones)
-    (cd $V && VERIF_ONLY="$hits" python3 check.py $pid --tier thorough > $out/check_${pid}_thorough.txt 2>$out/check_${pid}_thorough.err; echo "exit=$? (tier thorough, restricted to the harnesses the native sweep flagged: $hits)" >> $out/check_${pid}_thorough.txt)
-    if grep -q "^VIOLATION" $out/check_${pid}_thorough.txt; then cp $out/check_${pid}_thorough.txt $out/check_$pid.txt; fi
-  fi
-fi
-if [ -z "$hits" ] || { ! grep -q "^VIOLATION" $out/check_$pid.txt && grep -q "no obligation was generated" $out/check_$pid.txt; }; then
-  (cd $V && python3 check.py $pid --tier $tier > $out/check_$pid.txt 2>$out/check_$pid.err; echo "exit=$? (tier $tier, full check; native sweep flagged nothing the restricted runs could decide)" >> $out/check_$pid.txt)
-fi
- if [ -n "$hits" ]; then
-  (cd $V && VERIF_ONLY="$hits" python3 check.py $pid --tier $tier > $out/check_$pid.txt 2>$out/check_$pid.err; echo "exit=$? (tier $tier, restricted to the harnesses the native sweep flagged: $hits)" >> $out/check_$pid.txt)
-  if ! grep -q "^VIOLATION" $out/check_$pid.txt && [ "$tier" = quick ]; then
-    # the flagged harnesses may belong to the thorough tier only (larger bounds, slow ones)
-    (cd $V && VERIF_ONLY="$hits" python3 check.py $pid --tier thorough > $out/check_${pid}_thorough.txt 2>$out/check_${pid}_thorough.err; echo "exit=$? (tier thorough, restricted to the harnesses the native sweep flagged: $hits)" >> $out/check_${pid}_thorough.txt)
-    if grep -q "^VIOLATION" $out/check_${pid}_thorough.txt; then cp $out/check_${pid}_thorough.txt $out/check_$pid.txt; fi
-  fi
-fi
-if [ -z "$hits" ] || { ! grep -q "^VIOLATION" $out/check_$pid.txt && grep -q "no obligation was generated" $out/check_$pid.txt; }; then
-  (cd $V && python3 check.py $pid --tier $tier > $out/check_$pid.txt 2>$out/check_$pid.err; echo "exit=$? (tier $tier, full check; native sweep flagged nothing the restricted runs could decide)" >> $out/check_$pid.txt)
-fi
--if [ -n "$hits" ]; then
-  (cd $V && VERIF_ONLY="$hits" python3 check.py $pid --tier $tier > $out/check_$pid.txt 2>$out/check_$pid.err; echo "exit=$? (tier $tier, restricted to the harnesses the native sweep flagged: $hits)" >> $out/check_$pid.txt)
-  if ! grep -q "^VIOLATION" $out/check_$pid.txt && [ "$tier" = quick ]; then
-    # the flagged harnesses may belong to the thorough tier only (larger bounds, slow ones)
-    (cd $V && VERIF_ONLY="$hits" python3 check.py $pid --tier thorough > $out/check_${pid}_thorough.txt 2>$out/check_${pid}_thorough.err; echo "exit=$? (tier thorough, restricted to the harnesses the native sweep flagged: $hits)" >> $out/check_${pid}_thorough.txt)
-    if grep -q "^VIOLATION" $out/check_${pid}_thorough.txt; then cp $out/check_${pid}_thorough.txt $out/check_$pid.txt; fi
-  fi
-fi
-if [ -z "$hits" ] || { ! grep -q "^VIOLATION" $out/check_$pid.txt && grep -q "no obligation was generated" $out/check_$pid.txt; }; then
-  (cd $V && python3 check.py $pid --tier $tier > $out/check_$pid.txt 2>$out/check_$pid.err; echo "exit=$? (tier $tier, full check; native sweep flagged nothing the restricted runs could decide)" >> $out/check_$pid.txt)
-fi
-zif [ -n "$hits" ]; then
-  (cd $V && VERIF_ONLY="$hits" python3 check.py $pid --tier $tier > $out/check_$pid.txt 2>$out/check_$pid.err; echo "exit=$? (tier $tier, restricted to the harnesses the native sweep flagged: $hits)" >> $out/check_$pid.txt)
-  if ! grep -q "^VIOLATION" $out/check_$pid.txt && [ "$tier" = quick ]; then
-    # the flagged harnesses may belong to the thorough tier only (larger bounds, slow ones)
-    (cd $V && VERIF_ONLY="$hits" python3 check.py $pid --tier thorough > $out/check_${pid}_thorough.txt 2>$out/check_${pid}_thorough.err; echo "exit=$? (tier thorough, restricted to the harnesses the native sweep flagged: $hits)" >> $out/check_${pid}_thorough.txt)
-    if grep -q "^VIOLATION" $out/check_${pid}_thorough.txt; then cp $out/check_${pid}_thorough.txt $out/check_$pid.txt; fi
-  fi
-fi
-if [ -z "$hits" ] || { ! grep -q "^VIOLATION" $out/check_$pid.txt && grep -q "no obligation was generated" $out/check_$pid.txt; }; then
-  (cd $V && python3 check.py $pid --tier $tier > $out/check_$pid.txt 2>$out/check_$pid.err; echo "exit=$? (tier $tier, full check; native sweep flagged nothing the restricted runs could decide)" >> $out/check_$pid.txt)
-fi
- if [ -n "$hits" ]; then
-  (cd $V && VERIF_ONLY="$hits" python3 check.py $pid --tier $tier > $out/check_$pid.txt 2>$out/check_$pid.err; echo "exit=$? (tier $tier, restricted to the harnesses the native sweep flagged: $hits)" >> $out/check_$pid.txt)
-  if ! grep -q "^VIOLATION" $out/check_$pid.txt && [ "$tier" = quick ]; then
-    # the flagged harnesses may belong to the thorough tier only (larger bounds, slow ones)
-    (cd $V && VERIF_ONLY="$hits" python3 check.py $pid --tier thorough > $out/check_${pid}_thorough.txt 2>$out/check_${pid}_thorough.err; echo "exit=$? (tier thorough, restricted to the harnesses the native sweep flagged: $hits)" >> $out/check_${pid}_thorough.txt)
-    if grep -q "^VIOLATION" $out/check_${pid}_thorough.txt; then cp $out/check_${pid}_thorough.txt $out/check_$pid.txt; fi
-  fi
-fi
-if [ -z "$hits" ] || { ! grep -q "^VIOLATION" $out/check_$pid.txt && grep -q "no obligation was generated" $out/check_$pid.txt; }; then
-  (cd $V && python3 check.py $pid --tier $tier > $out/check_$pid.txt 2>$out/check_$pid.err; echo "exit=$? (tier $tier, full check; native sweep flagged nothing the restricted runs could decide)" >> $out/check_$pid.txt)
-fi
-"if [ -n "$hits" ]; then
-  (cd $V && VERIF_ONLY="$hits" python3 check.py $pid --tier $tier > $out/check_$pid.txt 2>$out/check_$pid.err; echo "exit=$? (tier $tier, restricted to the harnesses the native sweep flagged: $hits)" >> $out/check_$pid.txt)
-  if ! grep -q "^VIOLATION" $out/check_$pid.txt && [ "$tier" = quick ]; then
-    # the flagged harnesses may belong to the thorough tier only (larger bounds, slow ones)
-    (cd $V && VERIF_ONLY="$hits" python3 check.py $pid --tier thorough > $out/check_${pid}_thorough.txt 2>$out/check_${pid}_thorough.err; echo "exit=$? (tier thorough, restricted to the harnesses the native sweep flagged: $hits)" >> $out/check_${pid}_thorough.txt)
-    if grep -q "^VIOLATION" $out/check_${pid}_thorough.txt; then cp $out/check_${pid}_thorough.txt $out/check_$pid.txt; fi
-  fi
-fi
-if [ -z "$hits" ] || { ! grep -q "^VIOLATION" $out/check_$pid.txt && grep -q "no obligation was generated" $out/check_$pid.txt; }; then
-  (cd $V && python3 check.py $pid --tier $tier > $out/check_$pid.txt 2>$out/check_$pid.err; echo "exit=$? (tier $tier, full check; native sweep flagged nothing the restricted runs could decide)" >> $out/check_$pid.txt)
-fi
-$if [ -n "$hits" ]; then
-  (cd $V && VERIF_ONLY="$hits" python3 check.py $pid --tier $tier > $out/check_$pid.txt 2>$out/check_$pid.err; echo "exit=$? (tier $tier, restricted to the harnesses the native sweep flagged: $hits)" >> $out/check_$pid.txt)
-  if ! grep -q "^VIOLATION" $out/check_$pid.txt && [ "$tier" = quick ]; then
-    # the flagged harnesses may belong to the thorough tier only (larger bounds, slow ones)
-    (cd $V && VERIF_ONLY="$hits" python3 check.py $pid --tier thorough > $out/check_${pid}_thorough.txt 2>$out/check_${pid}_thorough.err; echo "exit=$? (tier thorough, restricted to the harnesses the native sweep flagged: $hits)" >> $out/check_${pid}_thorough.txt)
-    if grep -q "^VIOLATION" $out/check_${pid}_thorough.txt; then cp $out/check_${pid}_thorough.txt $out/check_$pid.txt; fi
-  fi
-fi
-if [ -z "$hits" ] || { ! grep -q "^VIOLATION" $out/check_$pid.txt && grep -q "no obligation was generated" $out/check_$pid.txt; }; then
-  (cd $V && python3 check.py $pid --tier $tier > $out/check_$pid.txt 2>$out/check_$pid.err; echo "exit=$? (tier $tier, full check; native sweep flagged nothing the restricted runs could decide)" >> $out/check_$pid.txt)
-fi
-hif [ -n "$hits" ]; then
-  (cd $V && VERIF_ONLY="$hits" python3 check.py $pid --tier $tier > $out/check_$pid.txt 2>$out/check_$pid.err; echo "exit=$? (tier $tier, restricted to the harnesses the native sweep flagged: $hits)" >> $out/check_$pid.txt)
-  if ! grep -q "^VIOLATION" $out/check_$pid.txt && [ "$tier" = quick ]; then
-    # the flagged harnesses may belong to the thorough tier only (larger bounds, slow ones)
-    (cd $V && VERIF_ONLY="$hits" python3 check.py $pid --tier thorough > $out/check_${pid}_thorough.txt 2>$out/check_${pid}_thorough.err; echo "exit=$? (tier thorough, restricted to the harnesses the native sweep flagged: $hits)" >> $out/check_${pid}_thorough.txt)
-    if grep -q "^VIOLATION" $out/check_${pid}_thorough.txt; then cp $out/check_${pid}_thorough.txt $out/check_$pid.txt; fi
-  fi
-fi
-if [ -z "$hits" ] || { ! grep -q "^VIOLATION" $out/check_$pid.txt && grep -q "no obligation was generated" $out/check_$pid.txt; }; then
-  (cd $V && python3 check.py $pid --tier $tier > $out/check_$pid.txt 2>$out/check_$pid.err; echo "exit=$? (tier $tier, full check; native sweep flagged nothing the restricted runs could decide)" >> $out/check_$pid.txt)
-fi
-iif [ -n "$hits" ]; then
-  (cd $V && VERIF_ONLY="$hits" python3 check.py $pid --tier $tier > $out/check_$pid.txt 2>$out/check_$pid.err; echo "exit=$? (tier $tier, restricted to the harnesses the native sweep flagged: $hits)" >> $out/check_$pid.txt)
-  if ! grep -q "^VIOLATION" $out/check_$pid.txt && [ "$tier" = quick ]; then
-    # the flagged harnesses may belong to the thorough tier only (larger bounds, slow ones)
-    (cd $V && VERIF_ONLY="$hits" python3 check.py $pid --tier thorough > $out/check_${pid}_thorough.txt 2>$out/check_${pid}_thorough.err; echo "exit=$? (tier thorough, restricted to the harnesses the native sweep flagged: $hits)" >> $out/check_${pid}_thorough.txt)
-    if grep -q "^VIOLATION" $out/check_${pid}_thorough.txt; then cp $out/check_${pid}_thorough.txt $out/check_$pid.txt; fi
-  fi
-fi
-if [ -z "$hits" ] || { ! grep -q "^VIOLATION" $out/check_$pid.txt && grep -q "no obligation was generated" $out/check_$pid.txt; }; then
-  (cd $V && python3 check.py $pid --tier $tier > $out/check_$pid.txt 2>$out/check_$pid.err; echo "exit=$? (tier $tier, full check; native sweep flagged nothing the restricted runs could decide)" >> $out/check_$pid.txt)
-fi
-tif [ -n "$hits" ]; then
-  (cd $V && VERIF_ONLY="$hits" python3 check.py $pid --tier $tier > $out/check_$pid.txt 2>$out/check_$pid.err; echo "exit=$? (tier $tier, restricted to the harnesses the native sweep flagged: $hits)" >> $out/check_$pid.txt)
-  if ! grep -q "^VIOLATION" $out/check_$pid.txt && [ "$tier" = quick ]; then
-    # the flagged harnesses may belong to the thorough tier only (larger bounds, slow ones)
-    (cd $V && VERIF_ONLY="$hits" python3 check.py $pid --tier thorough > $out/check_${pid}_thorough.txt 2>$out/check_${pid}_thorough.err; echo "exit=$? (tier thorough, restricted to the harnesses the native sweep flagged: $hits)" >> $out/check_${pid}_thorough.txt)
-    if grep -q "^VIOLATION" $out/check_${pid}_thorough.txt; then cp $out/check_${pid}_thorough.txt $out/check_$pid.txt; fi
-  fi
-fi
-if [ -z "$hits" ] || { ! grep -q "^VIOLATION" $out/check_$pid.txt && grep -q "no obligation was generated" $out/check_$pid.txt; }; then
-  (cd $V && python3 check.py $pid --tier $tier > $out/check_$pid.txt 2>$out/check_$pid.err; echo "exit=$? (tier $tier, full check; native sweep flagged nothing the restricted runs could decide)" >> $out/check_$pid.txt)
-fi
-sif [ -n "$hits" ]; then
-  (cd $V && VERIF_ONLY="$hits" python3 check.py $pid --tier $tier > $out/check_$pid.txt 2>$out/check_$pid.err; echo "exit=$? (tier $tier, restricted to the harnesses the native sweep flagged: $hits)" >> $out/check_$pid.txt)
-  if ! grep -q "^VIOLATION" $out/check_$pid.txt && [ "$tier" = quick ]; then
-    # the flagged harnesses may belong to the thorough tier only (larger bounds, slow ones)
-    (cd $V && VERIF_ONLY="$hits" python3 check.py $pid --tier thorough > $out/check_${pid}_thorough.txt 2>$out/check_${pid}_thorough.err; echo "exit=$? (tier thorough, restricted to the harnesses the native sweep flagged: $hits)" >> $out/check_${pid}_thorough.txt)
-    if grep -q "^VIOLATION" $out/check_${pid}_thorough.txt; then cp $out/check_${pid}_thorough.txt $out/check_$pid.txt; fi
-  fi
-fi
-if [ -z "$hits" ] || { ! grep -q "^VIOLATION" $out/check_$pid.txt && grep -q "no obligation was generated" $out/check_$pid.txt; }; then
-  (cd $V && python3 check.py $pid --tier $tier > $out/check_$pid.txt 2>$out/check_$pid.err; echo "exit=$? (tier $tier, full check; native sweep flagged nothing the restricted runs could decide)" >> $out/check_$pid.txt)
-fi
-"if [ -n "$hits" ]; then
-  (cd $V && VERIF_ONLY="$hits" python3 check.py $pid --tier $tier > $out/check_$pid.txt 2>$out/check_$pid.err; echo "exit=$? (tier $tier, restricted to the harnesses the native sweep flagged: $hits)" >> $out/check_$pid.txt)
-  if ! grep -q "^VIOLATION" $out/check_$pid.txt && [ "$tier" = quick ]; then
-    # the flagged harnesses may belong to the thorough tier only (larger bounds, slow ones)
-    (cd $V && VERIF_ONLY="$hits" python3 check.py $pid --tier thorough > $out/check_${pid}_thorough.txt 2>$out/check_${pid}_thorough.err; echo "exit=$? (tier thorough, restricted to the harnesses the native sweep flagged: $hits)" >> $out/check_${pid}_thorough.txt)
-    if grep -q "^VIOLATION" $out/check_${pid}_thorough.txt; then cp $out/check_${pid}_thorough.txt $out/check_$pid.txt; fi
-  fi
-fi
-if [ -z "$hits" ] || { ! grep -q "^VIOLATION" $out/check_$pid.txt && grep -q "no obligation was generated" $out/check_$pid.txt; }; then
-  (cd $V && python3 check.py $pid --tier $tier > $out/check_$pid.txt 2>$out/check_$pid.err; echo "exit=$? (tier $tier, full check; native sweep flagged nothing the restricted runs could decide)" >> $out/check_$pid.txt)
-fi
- if [ -n "$hits" ]; then
-  (cd $V && VERIF_ONLY="$hits" python3 check.py $pid --tier $tier > $out/check_$pid.txt 2>$out/check_$pid.err; echo "exit=$? (tier $tier, restricted to the harnesses the native sweep flagged: $hits)" >> $out/check_$pid.txt)
-  if ! grep -q "^VIOLATION" $out/check_$pid.txt && [ "$tier" = quick ]; then
-    # the flagged harnesses may belong to the thorough tier only (larger bounds, slow ones)
-    (cd $V && VERIF_ONLY="$hits" python3 check.py $pid --tier thorough > $out/check_${pid}_thorough.txt 2>$out/check_${pid}_thorough.err; echo "exit=$? (tier thorough, restricted to the harnesses the native sweep flagged: $hits)" >> $out/check_${pid}_thorough.txt)
-    if grep -q "^VIOLATION" $out/check_${pid}_thorough.txt; then cp $out/check_${pid}_thorough.txt $out/check_$pid.txt; fi
-  fi
-fi
-if [ -z "$hits" ] || { ! grep -q "^VIOLATION" $out/check_$pid.txt && grep -q "no obligation was generated" $out/check_$pid.txt; }; then
-  (cd $V && python3 check.py $pid --tier $tier > $out/check_$pid.txt 2>$out/check_$pid.err; echo "exit=$? (tier $tier, full check; native sweep flagged nothing the restricted runs could decide)" >> $out/check_$pid.txt)
-fi
-]if [ -n "$hits" ]; then
-  (cd $V && VERIF_ONLY="$hits" python3 check.py $pid --tier $tier > $out/check_$pid.txt 2>$out/check_$pid.err; echo "exit=$? (tier $tier, restricted to the harnesses the native sweep flagged: $hits)" >> $out/check_$pid.txt)
-  if ! grep -q "^VIOLATION" $out/check_$pid.txt && [ "$tier" = quick ]; then
-    # the flagged harnesses may belong to the thorough tier only (larger bounds, slow ones)
-    (cd $V && VERIF_ONLY="$hits" python3 check.py $pid --tier thorough > $out/check_${pid}_thorough.txt 2>$out/check_${pid}_thorough.err; echo "exit=$? (tier thorough, restricted to the harnesses the native sweep flagged: $hits)" >> $out/check_${pid}_thorough.txt)
-    if grep -q "^VIOLATION" $out/check_${pid}_thorough.txt; then cp $out/check_${pid}_thorough.txt $out/check_$pid.txt; fi
-  fi
-fi
-if [ -z "$hits" ] || { ! grep -q "^VIOLATION" $out/check_$pid.txt && grep -q "no obligation was generated" $out/check_$pid.txt; }; then
-  (cd $V && python3 check.py $pid --tier $tier > $out/check_$pid.txt 2>$out/check_$pid.err; echo "exit=$? (tier $tier, full check; native sweep flagged nothing the restricted runs could decide)" >> $out/check_$pid.txt)
-fi
- if [ -n "$hits" ]; then
-  (cd $V && VERIF_ONLY="$hits" python3 check.py $pid --tier $tier > $out/check_$pid.txt 2>$out/check_$pid.err; echo "exit=$? (tier $tier, restricted to the harnesses the native sweep flagged: $hits)" >> $out/check_$pid.txt)
-  if ! grep -q "^VIOLATION" $out/check_$pid.txt && [ "$tier" = quick ]; then
-    # the flagged harnesses may belong to the thorough tier only (larger bounds, slow ones)
-    (cd $V && VERIF_ONLY="$hits" python3 check.py $pid --tier thorough > $out/check_${pid}_thorough.txt 2>$out/check_${pid}_thorough.err; echo "exit=$? (tier thorough, restricted to the harnesses the native sweep flagged: $hits)" >> $out/check_${pid}_thorough.txt)
-    if grep -q "^VIOLATION" $out/check_${pid}_thorough.txt; then cp $out/check_${pid}_thorough.txt $out/check_$pid.txt; fi
-  fi
-fi
-if [ -z "$hits" ] || { ! grep -q "^VIOLATION" $out/check_$pid.txt && grep -q "no obligation was generated" $out/check_$pid.txt; }; then
-  (cd $V && python3 check.py $pid --tier $tier > $out/check_$pid.txt 2>$out/check_$pid.err; echo "exit=$? (tier $tier, full check; native sweep flagged nothing the restricted runs could decide)" >> $out/check_$pid.txt)
-fi
-|if [ -n "$hits" ]; then
-  (cd $V && VERIF_ONLY="$hits" python3 check.py $pid --tier $tier > $out/check_$pid.txt 2>$out/check_$pid.err; echo "exit=$? (tier $tier, restricted to the harnesses the native sweep flagged: $hits)" >> $out/check_$pid.txt)
-  if ! grep -q "^VIOLATION" $out/check_$pid.txt && [ "$tier" = quick ]; then
-    # the flagged harnesses may belong to the thorough tier only (larger bounds, slow ones)
-    (cd $V && VERIF_ONLY="$hits" python3 check.py $pid --tier thorough > $out/check_${pid}_thorough.txt 2>$out/check_${pid}_thorough.err; echo "exit=$? (tier thorough, restricted to the harnesses the native sweep flagged: $hits)" >> $out/check_${pid}_thorough.txt)
-    if grep -q "^VIOLATION" $out/check_${pid}_thorough.txt; then cp $out/check_${pid}_thorough.txt $out/check_$pid.txt; fi
-  fi
-fi
-if [ -z "$hits" ] || { ! grep -q "^VIOLATION" $out/check_$pid.txt && grep -q "no obligation was generated" $out/check_$pid.txt; }; then
-  (cd $V && python3 check.py $pid --tier $tier > $out/check_$pid.txt 2>$out/check_$pid.err; echo "exit=$? (tier $tier, full check; native sweep flagged nothing the restricted runs could decide)" >> $out/check_$pid.txt)
-fi
-|if [ -n "$hits" ]; then
-  (cd $V && VERIF_ONLY="$hits" python3 check.py $pid --tier $tier > $out/check_$pid.txt 2>$out/check_$pid.err; echo "exit=$? (tier $tier, restricted to the harnesses the native sweep flagged: $hits)" >> $out/check_$pid.txt)
-  if ! grep -q "^VIOLATION" $out/check_$pid.txt && [ "$tier" = quick ]; then
-    # the flagged harnesses may belong to the thorough tier only (larger bounds, slow ones)
-    (cd $V && VERIF_ONLY="$hits" python3 check.py $pid --tier thorough > $out/check_${pid}_thorough.txt 2>$out/check_${pid}_thorough.err; echo "exit=$? (tier thorough, restricted to the harnesses the native sweep flagged: $hits)" >> $out/check_${pid}_thorough.txt)
-    if grep -q "^VIOLATION" $out/check_${pid}_thorough.txt; then cp $out/check_${pid}_thorough.txt $out/check_$pid.txt; fi
-  fi
-fi
-if [ -z "$hits" ] || { ! grep -q "^VIOLATION" $out/check_$pid.txt && grep -q "no obligation was generated" $out/check_$pid.txt; }; then
-  (cd $V && python3 check.py $pid --tier $tier > $out/check_$pid.txt 2>$out/check_$pid.err; echo "exit=$? (tier $tier, full check; native sweep flagged nothing the restricted runs could decide)" >> $out/check_$pid.txt)
-fi
- if [ -n "$hits" ]; then
-  (cd $V && VERIF_ONLY="$hits" python3 check.py $pid --tier $tier > $out/check_$pid.txt 2>$out/check_$pid.err; echo "exit=$? (tier $tier, restricted to the harnesses the native sweep flagged: $hits)" >> $out/check_$pid.txt)
-  if ! grep -q "^VIOLATION" $out/check_$pid.txt && [ "$tier" = quick ]; then
-    # the flagged harnesses may belong to the thorough tier only (larger bounds, slow ones)
-    (cd $V && VERIF_ONLY="$hits" python3 check.py $pid --tier thorough > $out/check_${pid}_thorough.txt 2>$out/check_${pid}_thorough.err; echo "exit=$? (tier thorough, restricted to the harnesses the native sweep flagged: $hits)" >> $out/check_${pid}_thorough.txt)
-    if grep -q "^VIOLATION" $out/check_${pid}_thorough.txt; then cp $out/check_${pid}_thorough.txt $out/check_$pid.txt; fi
-  fi
-fi
-if [ -z "$hits" ] || { ! grep -q "^VIOLATION" $out/check_$pid.txt && grep -q "no obligation was generated" $out/check_$pid.txt; }; then
-  (cd $V && python3 check.py $pid --tier $tier > $out/check_$pid.txt 2>$out/check_$pid.err; echo "exit=$? (tier $tier, full check; native sweep flagged nothing the restricted runs could decide)" >> $out/check_$pid.txt)
-fi
-gif [ -n "$hits" ]; then
-  (cd $V && VERIF_ONLY="$hits" python3 check.py $pid --tier $tier > $out/check_$pid.txt 2>$out/check_$pid.err; echo "exit=$? (tier $tier, restricted to the harnesses the native sweep flagged: $hits)" >> $out/check_$pid.txt)
-  if ! grep -q "^VIOLATION" $out/check_$pid.txt && [ "$tier" = quick ]; then
-    # the flagged harnesses may belong to the thorough tier only (larger bounds, slow ones)
-    (cd $V && VERIF_ONLY="$hits" python3 check.py $pid --tier thorough > $out/check_${pid}_thorough.txt 2>$out/check_${pid}_thorough.err; echo "exit=$? (tier thorough, restricted to the harnesses the native sweep flagged: $hits)" >> $out/check_${pid}_thorough.txt)
-    if grep -q "^VIOLATION" $out/check_${pid}_thorough.txt; then cp $out/check_${pid}_thorough.txt $out/check_$pid.txt; fi
-  fi
-fi
-if [ -z "$hits" ] || { ! grep -q "^VIOLATION" $out/check_$pid.txt && grep -q "no obligation was generated" $out/check_$pid.txt; }; then
-  (cd $V && python3 check.py $pid --tier $tier > $out/check_$pid.txt 2>$out/check_$pid.err; echo "exit=$? (tier $tier, full check; native sweep flagged nothing the restricted runs could decide)" >> $out/check_$pid.txt)
-fi
-rif [ -n "$hits" ]; then
-  (cd $V && VERIF_ONLY="$hits" python3 check.py $pid --tier $tier > $out/check_$pid.txt 2>$out/check_$pid.err; echo "exit=$? (tier $tier, restricted to the harnesses the native sweep flagged: $hits)" >> $out/check_$pid.txt)
-  if ! grep -q "^VIOLATION" $out/check_$pid.txt && [ "$tier" = quick ]; then
-    # the flagged harnesses may belong to the thorough tier only (larger bounds, slow ones)
-    (cd $V && VERIF_ONLY="$hits" python3 check.py $pid --tier thorough > $out/check_${pid}_thorough.txt 2>$out/check_${pid}_thorough.err; echo "exit=$? (tier thorough, restricted to the harnesses the native sweep flagged: $hits)" >> $out/check_${pid}_thorough.txt)
-    if grep -q "^VIOLATION" $out/check_${pid}_thorough.txt; then cp $out/check_${pid}_thorough.txt $out/check_$pid.txt; fi
-  fi
-fi
-if [ -z "$hits" ] || { ! grep -q "^VIOLATION" $out/check_$pid.txt && grep -q "no obligation was generated" $out/check_$pid.txt; }; then
-  (cd $V && python3 check.py $pid --tier $tier > $out/check_$pid.txt 2>$out/check_$pid.err; echo "exit=$? (tier $tier, full check; native sweep flagged nothing the restricted runs could decide)" >> $out/check_$pid.txt)
-fi
-eif [ -n "$hits" ]; then
-  (cd $V && VERIF_ONLY="$hits" python3 check.py $pid --tier $tier > $out/check_$pid.txt 2>$out/check_$pid.err; echo "exit=$? (tier $tier, restricted to the harnesses the native sweep flagged: $hits)" >> $out/check_$pid.txt)
-  if ! grep -q "^VIOLATION" $out/check_$pid.txt && [ "$tier" = quick ]; then
-    # the flagged harnesses may belong to the thorough tier only (larger bounds, slow ones)
-    (cd $V && VERIF_ONLY="$hits" python3 check.py $pid --tier thorough > $out/check_${pid}_thorough.txt 2>$out/check_${pid}_thorough.err; echo "exit=$? (tier thorough, restricted to the harnesses the native sweep flagged: $hits)" >> $out/check_${pid}_thorough.txt)
-    if grep -q "^VIOLATION" $out/check_${pid}_thorough.txt; then cp $out/check_${pid}_thorough.txt $out/check_$pid.txt; fi
-  fi
-fi
-if [ -z "$hits" ] || { ! grep -q "^VIOLATION" $out/check_$pid.txt && grep -q "no obligation was generated" $out/check_$pid.txt; }; then
-  (cd $V && python3 check.py $pid --tier $tier > $out/check_$pid.txt 2>$out/check_$pid.err; echo "exit=$? (tier $tier, full check; native sweep flagged nothing the restricted runs could decide)" >> $out/check_$pid.txt)
-fi
-pif [ -n "$hits" ]; then
-  (cd $V && VERIF_ONLY="$hits" python3 check.py $pid --tier $tier > $out/check_$pid.txt 2>$out/check_$pid.err; echo "exit=$? (tier $tier, restricted to the harnesses the native sweep flagged: $hits)" >> $out/check_$pid.txt)
-  if ! grep -q "^VIOLATION" $out/check_$pid.txt && [ "$tier" = quick ]; then
-    # the flagged harnesses may belong to the thorough tier only (larger bounds, slow ones)
-    (cd $V && VERIF_ONLY="$hits" python3 check.py $pid --tier thorough > $out/check_${pid}_thorough.txt 2>$out/check_${pid}_thorough.err; echo "exit=$? (tier thorough, restricted to the harnesses the native sweep flagged: $hits)" >> $out/check_${pid}_thorough.txt)
-    if grep -q "^VIOLATION" $out/check_${pid}_thorough.txt; then cp $out/check_${pid}_thorough.txt $out/check_$pid.txt; fi
-  fi
-fi
-if [ -z "$hits" ] || { ! grep -q "^VIOLATION" $out/check_$pid.txt && grep -q "no obligation was generated" $out/check_$pid.txt; }; then
-  (cd $V && python3 check.py $pid --tier $tier > $out/check_$pid.txt 2>$out/check_$pid.err; echo "exit=$? (tier $tier, full check; native sweep flagged nothing the restricted runs could decide)" >> $out/check_$pid.txt)
-fi
- if [ -n "$hits" ]; then
-  (cd $V && VERIF_ONLY="$hits" python3 check.py $pid --tier $tier > $out/check_$pid.txt 2>$out/check_$pid.err; echo "exit=$? (tier $tier, restricted to the harnesses the native sweep flagged: $hits)" >> $out/check_$pid.txt)
-  if ! grep -q "^VIOLATION" $out/check_$pid.txt && [ "$tier" = quick ]; then
-    # the flagged harnesses may belong to the thorough tier only (larger bounds, slow ones)
-    (cd $V && VERIF_ONLY="$hits" python3 check.py $pid --tier thorough > $out/check_${pid}_thorough.txt 2>$out/check_${pid}_thorough.err; echo "exit=$? (tier thorough, restricted to the harnesses the native sweep flagged: $hits)" >> $out/check_${pid}_thorough.txt)
-    if grep -q "^VIOLATION" $out/check_${pid}_thorough.txt; then cp $out/check_${pid}_thorough.txt $out/check_$pid.txt; fi
-  fi
-fi
-if [ -z "$hits" ] || { ! grep -q "^VIOLATION" $out/check_$pid.txt && grep -q "no obligation was generated" $out/check_$pid.txt; }; then
-  (cd $V && python3 check.py $pid --tier $tier > $out/check_$pid.txt 2>$out/check_$pid.err; echo "exit=$? (tier $tier, full check; native sweep flagged nothing the restricted runs could decide)" >> $out/check_$pid.txt)
-fi
--if [ -n "$hits" ]; then
-  (cd $V && VERIF_ONLY="$hits" python3 check.py $pid --tier $tier > $out/check_$pid.txt 2>$out/check_$pid.err; echo "exit=$? (tier $tier, restricted to the harnesses the native sweep flagged: $hits)" >> $out/check_$pid.txt)
-  if ! grep -q "^VIOLATION" $out/check_$pid.txt && [ "$tier" = quick ]; then
-    # the flagged harnesses may belong to the thorough tier only (larger bounds, slow ones)
-    (cd $V && VERIF_ONLY="$hits" python3 check.py $pid --tier thorough > $out/check_${pid}_thorough.txt 2>$out/check_${pid}_thorough.err; echo "exit=$? (tier thorough, restricted to the harnesses the native sweep flagged: $hits)" >> $out/check_${pid}_thorough.txt)
-    if grep -q "^VIOLATION" $out/check_${pid}_thorough.txt; then cp $out/check_${pid}_thorough.txt $out/check_$pid.txt; fi
-  fi
-fi
-if [ -z "$hits" ] || { ! grep -q "^VIOLATION" $out/check_$pid.txt && grep -q "no obligation was generated" $out/check_$pid.txt; }; then
-  (cd $V && python3 check.py $pid --tier $tier > $out/check_$pid.txt 2>$out/check_$pid.err; echo "exit=$? (tier $tier, full check; native sweep flagged nothing the restricted runs could decide)" >> $out/check_$pid.txt)
-fi
-qif [ -n "$hits" ]; then
-  (cd $V && VERIF_ONLY="$hits" python3 check.py $pid --tier $tier > $out/check_$pid.txt 2>$out/check_$pid.err; echo "exit=$? (tier $tier, restricted to the harnesses the native sweep flagged: $hits)" >> $out/check_$pid.txt)
-  if ! grep -q "^VIOLATION" $out/check_$pid.txt && [ "$tier" = quick ]; then
-    # the flagged harnesses may belong to the thorough tier only (larger bounds, slow ones)
-    (cd $V && VERIF_ONLY="$hits" python3 check.py $pid --tier thorough > $out/check_${pid}_thorough.txt 2>$out/check_${pid}_thorough.err; echo "exit=$? (tier thorough, restricted to the harnesses the native sweep flagged: $hits)" >> $out/check_${pid}_thorough.txt)
-    if grep -q "^VIOLATION" $out/check_${pid}_thorough.txt; then cp $out/check_${pid}_thorough.txt $out/check_$pid.txt; fi
-  fi
-fi
-if [ -z "$hits" ] || { ! grep -q "^VIOLATION" $out/check_$pid.txt && grep -q "no obligation was generated" $out/check_$pid.txt; }; then
-  (cd $V && python3 check.py $pid --tier $tier > $out/check_$pid.txt 2>$out/check_$pid.err; echo "exit=$? (tier $tier, full check; native sweep flagged nothing the restricted runs could decide)" >> $out/check_$pid.txt)
-fi
- if [ -n "$hits" ]; then
-  (cd $V && VERIF_ONLY="$hits" python3 check.py $pid --tier $tier > $out/check_$pid.txt 2>$out/check_$pid.err; echo "exit=$? (tier $tier, restricted to the harnesses the native sweep flagged: $hits)" >> $out/check_$pid.txt)
-  if ! grep -q "^VIOLATION" $out/check_$pid.txt && [ "$tier" = quick ]; then
-    # the flagged harnesses may belong to the thorough tier only (larger bounds, slow ones)
-    (cd $V && VERIF_ONLY="$hits" python3 check.py $pid --tier thorough > $out/check_${pid}_thorough.txt 2>$out/check_${pid}_thorough.err; echo "exit=$? (tier thorough, restricted to the harnesses the native sweep flagged: $hits)" >> $out/check_${pid}_thorough.txt)
-    if grep -q "^VIOLATION" $out/check_${pid}_thorough.txt; then cp $out/check_${pid}_thorough.txt $out/check_$pid.txt; fi
-  fi
-fi
-if [ -z "$hits" ] || { ! grep -q "^VIOLATION" $out/check_$pid.txt && grep -q "no obligation was generated" $out/check_$pid.txt; }; then
-  (cd $V && python3 check.py $pid --tier $tier > $out/check_$pid.txt 2>$out/check_$pid.err; echo "exit=$? (tier $tier, full check; native sweep flagged nothing the restricted runs could decide)" >> $out/check_$pid.txt)
-fi
-"if [ -n "$hits" ]; then
-  (cd $V && VERIF_ONLY="$hits" python3 check.py $pid --tier $tier > $out/check_$pid.txt 2>$out/check_$pid.err; echo "exit=$? (tier $tier, restricted to the harnesses the native sweep flagged: $hits)" >> $out/check_$pid.txt)
-  if ! grep -q "^VIOLATION" $out/check_$pid.txt && [ "$tier" = quick ]; then
-    # the flagged harnesses may belong to the thorough tier only (larger bounds, slow ones)
-    (cd $V && VERIF_ONLY="$hits" python3 check.py $pid --tier thorough > $out/check_${pid}_thorough.txt 2>$out/check_${pid}_thorough.err; echo "exit=$? (tier thorough, restricted to the harnesses the native sweep flagged: $hits)" >> $out/check_${pid}_thorough.txt)
-    if grep -q "^VIOLATION" $out/check_${pid}_thorough.txt; then cp $out/check_${pid}_thorough.txt $out/check_$pid.txt; fi
-  fi
-fi
-if [ -z "$hits" ] || { ! grep -q "^VIOLATION" $out/check_$pid.txt && grep -q "no obligation was generated" $out/check_$pid.txt; }; then
-  (cd $V && python3 check.py $pid --tier $tier > $out/check_$pid.txt 2>$out/check_$pid.err; echo "exit=$? (tier $tier, full check; native sweep flagged nothing the restricted runs could decide)" >> $out/check_$pid.txt)
-fi
-nif [ -n "$hits" ]; then
-  (cd $V && VERIF_ONLY="$hits" python3 check.py $pid --tier $tier > $out/check_$pid.txt 2>$out/check_$pid.err; echo "exit=$? (tier $tier, restricted to the harnesses the native sweep flagged: $hits)" >> $out/check_$pid.txt)
-  if ! grep -q "^VIOLATION" $out/check_$pid.txt && [ "$tier" = quick ]; then
-    # the flagged harnesses may belong to the thorough tier only (larger bounds, slow ones)
-    (cd $V && VERIF_ONLY="$hits" python3 check.py $pid --tier thorough > $out/check_${pid}_thorough.txt 2>$out/check_${pid}_thorough.err; echo "exit=$? (tier thorough, restricted to the harnesses the native sweep flagged: $hits)" >> $out/check_${pid}_thorough.txt)
-    if grep -q "^VIOLATION" $out/check_${pid}_thorough.txt; then cp $out/check_${pid}_thorough.txt $out/check_$pid.txt; fi
-  fi
-fi
-if [ -z "$hits" ] || { ! grep -q "^VIOLATION" $out/check_$pid.txt && grep -q "no obligation was generated" $out/check_$pid.txt; }; then
-  (cd $V && python3 check.py $pid --tier $tier > $out/check_$pid.txt 2>$out/check_$pid.err; echo "exit=$? (tier $tier, full check; native sweep flagged nothing the restricted runs could decide)" >> $out/check_$pid.txt)
-fi
-oif [ -n "$hits" ]; then
-  (cd $V && VERIF_ONLY="$hits" python3 check.py $pid --tier $tier > $out/check_$pid.txt 2>$out/check_$pid.err; echo "exit=$? (tier $tier, restricted to the harnesses the native sweep flagged: $hits)" >> $out/check_$pid.txt)
-  if ! grep -q "^VIOLATION" $out/check_$pid.txt && [ "$tier" = quick ]; then
-    # the flagged harnesses may belong to the thorough tier only (larger bounds, slow ones)
-    (cd $V && VERIF_ONLY="$hits" python3 check.py $pid --tier thorough > $out/check_${pid}_thorough.txt 2>$out/check_${pid}_thorough.err; echo "exit=$? (tier thorough, restricted to the harnesses the native sweep flagged: $hits)" >> $out/check_${pid}_thorough.txt)
-    if grep -q "^VIOLATION" $out/check_${pid}_thorough.txt; then cp $out/check_${pid}_thorough.txt $out/check_$pid.txt; fi
-  fi
-fi
-if [ -z "$hits" ] || { ! grep -q "^VIOLATION" $out/check_$pid.txt && grep -q "no obligation was generated" $out/check_$pid.txt; }; then
-  (cd $V && python3 check.py $pid --tier $tier > $out/check_$pid.txt 2>$out/check_$pid.err; echo "exit=$? (tier $tier, full check; native sweep flagged nothing the restricted runs could decide)" >> $out/check_$pid.txt)
-fi
- if [ -n "$hits" ]; then
-  (cd $V && VERIF_ONLY="$hits" python3 check.py $pid --tier $tier > $out/check_$pid.txt 2>$out/check_$pid.err; echo "exit=$? (tier $tier, restricted to the harnesses the native sweep flagged: $hits)" >> $out/check_$pid.txt)
-  if ! grep -q "^VIOLATION" $out/check_$pid.txt && [ "$tier" = quick ]; then
-    # the flagged harnesses may belong to the thorough tier only (larger bounds, slow ones)
-    (cd $V && VERIF_ONLY="$hits" python3 check.py $pid --tier thorough > $out/check_${pid}_thorough.txt 2>$out/check_${pid}_thorough.err; echo "exit=$? (tier thorough, restricted to the harnesses the native sweep flagged: $hits)" >> $out/check_${pid}_thorough.txt)
-    if grep -q "^VIOLATION" $out/check_${pid}_thorough.txt; then cp $out/check_${pid}_thorough.txt $out/check_$pid.txt; fi
-  fi
-fi
-if [ -z "$hits" ] || { ! grep -q "^VIOLATION" $out/check_$pid.txt && grep -q "no obligation was generated" $out/check_$pid.txt; }; then
-  (cd $V && python3 check.py $pid --tier $tier > $out/check_$pid.txt 2>$out/check_$pid.err; echo "exit=$? (tier $tier, full check; native sweep flagged nothing the restricted runs could decide)" >> $out/check_$pid.txt)
-fi
-oif [ -n "$hits" ]; then
-  (cd $V && VERIF_ONLY="$hits" python3 check.py $pid --tier $tier > $out/check_$pid.txt 2>$out/check_$pid.err; echo "exit=$? (tier $tier, restricted to the harnesses the native sweep flagged: $hits)" >> $out/check_$pid.txt)
-  if ! grep -q "^VIOLATION" $out/check_$pid.txt && [ "$tier" = quick ]; then
-    # the flagged harnesses may belong to the thorough tier only (larger bounds, slow ones)
-    (cd $V && VERIF_ONLY="$hits" python3 check.py $pid --tier thorough > $out/check_${pid}_thorough.txt 2>$out/check_${pid}_thorough.err; echo "exit=$? (tier thorough, restricted to the harnesses the native sweep flagged: $hits)" >> $out/check_${pid}_thorough.txt)
-    if grep -q "^VIOLATION" $out/check_${pid}_thorough.txt; then cp $out/check_${pid}_thorough.txt $out/check_$pid.txt; fi
-  fi
-fi
-if [ -z "$hits" ] || { ! grep -q "^VIOLATION" $out/check_$pid.txt && grep -q "no obligation was generated" $out/check_$pid.txt; }; then
-  (cd $V && python3 check.py $pid --tier $tier > $out/check_$pid.txt 2>$out/check_$pid.err; echo "exit=$? (tier $tier, full check; native sweep flagged nothing the restricted runs could decide)" >> $out/check_$pid.txt)
-fi
-bif [ -n "$hits" ]; then
-  (cd $V && VERIF_ONLY="$hits" python3 check.py $pid --tier $tier > $out/check_$pid.txt 2>$out/check_$pid.err; echo "exit=$? (tier $tier, restricted to the harnesses the native sweep flagged: $hits)" >> $out/check_$pid.txt)
-  if ! grep -q "^VIOLATION" $out/check_$pid.txt && [ "$tier" = quick ]; then
-    # the flagged harnesses may belong to the thorough tier only (larger bounds, slow ones)
-    (cd $V && VERIF_ONLY="$hits" python3 check.py $pid --tier thorough > $out/check_${pid}_thorough.txt 2>$out/check_${pid}_thorough.err; echo "exit=$? (tier thorough, restricted to the harnesses the native sweep flagged: $hits)" >> $out/check_${pid}_thorough.txt)
-    if grep -q "^VIOLATION" $out/check_${pid}_thorough.txt; then cp $out/check_${pid}_thorough.txt $out/check_$pid.txt; fi
-  fi
-fi
-if [ -z "$hits" ] || { ! grep -q "^VIOLATION" $out/check_$pid.txt && grep -q "no obligation was generated" $out/check_$pid.txt; }; then
-  (cd $V && python3 check.py $pid --tier $tier > $out/check_$pid.txt 2>$out/check_$pid.err; echo "exit=$? (tier $tier, full check; native sweep flagged nothing the restricted runs could decide)" >> $out/check_$pid.txt)
-fi
-lif [ -n "$hits" ]; then
-  (cd $V && VERIF_ONLY="$hits" python3 check.py $pid --tier $tier > $out/check_$pid.txt 2>$out/check_$pid.err; echo "exit=$? (tier $tier, restricted to the harnesses the native sweep flagged: $hits)" >> $out/check_$pid.txt)
-  if ! grep -q "^VIOLATION" $out/check_$pid.txt && [ "$tier" = quick ]; then
-    # the flagged harnesses may belong to the thorough tier only (larger bounds, slow ones)
-    (cd $V && VERIF_ONLY="$hits" python3 check.py $pid --tier thorough > $out/check_${pid}_thorough.txt 2>$out/check_${pid}_thorough.err; echo "exit=$? (tier thorough, restricted to the harnesses the native sweep flagged: $hits)" >> $out/check_${pid}_thorough.txt)
-    if grep -q "^VIOLATION" $out/check_${pid}_thorough.txt; then cp $out/check_${pid}_thorough.txt $out/check_$pid.txt; fi
-  fi
-fi
-if [ -z "$hits" ] || { ! grep -q "^VIOLATION" $out/check_$pid.txt && grep -q "no obligation was generated" $out/check_$pid.txt; }; then
-  (cd $V && python3 check.py $pid --tier $tier > $out/check_$pid.txt 2>$out/check_$pid.err; echo "exit=$? (tier $tier, full check; native sweep flagged nothing the restricted runs could decide)" >> $out/check_$pid.txt)
-fi
-iif [ -n "$hits" ]; then
-  (cd $V && VERIF_ONLY="$hits" python3 check.py $pid --tier $tier > $out/check_$pid.txt 2>$out/check_$pid.err; echo "exit=$? (tier $tier, restricted to the harnesses the native sweep flagged: $hits)" >> $out/check_$pid.txt)
-  if ! grep -q "^VIOLATION" $out/check_$pid.txt && [ "$tier" = quick ]; then
-    # the flagged harnesses may belong to the thorough tier only (larger bounds, slow ones)
-    (cd $V && VERIF_ONLY="$hits" python3 check.py $pid --tier thorough > $out/check_${pid}_thorough.txt 2>$out/check_${pid}_thorough.err; echo "exit=$? (tier thorough, restricted to the harnesses the native sweep flagged: $hits)" >> $out/check_${pid}_thorough.txt)
-    if grep -q "^VIOLATION" $out/check_${pid}_thorough.txt; then cp $out/check_${pid}_thorough.txt $out/check_$pid.txt; fi
-  fi
-fi
-if [ -z "$hits" ] || { ! grep -q "^VIOLATION" $out/check_$pid.txt && grep -q "no obligation was generated" $out/check_$pid.txt; }; then
-  (cd $V && python3 check.py $pid --tier $tier > $out/check_$pid.txt 2>$out/check_$pid.err; echo "exit=$? (tier $tier, full check; native sweep flagged nothing the restricted runs could decide)" >> $out/check_$pid.txt)
-fi
-gif [ -n "$hits" ]; then
-  (cd $V && VERIF_ONLY="$hits" python3 check.py $pid --tier $tier > $out/check_$pid.txt 2>$out/check_$pid.err; echo "exit=$? (tier $tier, restricted to the harnesses the native sweep flagged: $hits)" >> $out/check_$pid.txt)
-  if ! grep -q "^VIOLATION" $out/check_$pid.txt && [ "$tier" = quick ]; then
-    # the flagged harnesses may belong to the thorough tier only (larger bounds, slow ones)
-    (cd $V && VERIF_ONLY="$hits" python3 check.py $pid --tier thorough > $out/check_${pid}_thorough.txt 2>$out/check_${pid}_thorough.err; echo "exit=$? (tier thorough, restricted to the harnesses the native sweep flagged: $hits)" >> $out/check_${pid}_thorough.txt)
-    if grep -q "^VIOLATION" $out/check_${pid}_thorough.txt; then cp $out/check_${pid}_thorough.txt $out/check_$pid.txt; fi
-  fi
-fi
-if [ -z "$hits" ] || { ! grep -q "^VIOLATION" $out/check_$pid.txt && grep -q "no obligation was generated" $out/check_$pid.txt; }; then
-  (cd $V && python3 check.py $pid --tier $tier > $out/check_$pid.txt 2>$out/check_$pid.err; echo "exit=$? (tier $tier, full check; native sweep flagged nothing the restricted runs could decide)" >> $out/check_$pid.txt)
-fi
-aif [ -n "$hits" ]; then
-  (cd $V && VERIF_ONLY="$hits" python3 check.py $pid --tier $tier > $out/check_$pid.txt 2>$out/check_$pid.err; echo "exit=$? (tier $tier, restricted to the harnesses the native sweep flagged: $hits)" >> $out/check_$pid.txt)
-  if ! grep -q "^VIOLATION" $out/check_$pid.txt && [ "$tier" = quick ]; then
-    # the flagged harnesses may belong to the thorough tier only (larger bounds, slow ones)
-    (cd $V && VERIF_ONLY="$hits" python3 check.py $pid --tier thorough > $out/check_${pid}_thorough.txt 2>$out/check_${pid}_thorough.err; echo "exit=$? (tier thorough, restricted to the harnesses the native sweep flagged: $hits)" >> $out/check_${pid}_thorough.txt)
-    if grep -q "^VIOLATION" $out/check_${pid}_thorough.txt; then cp $out/check_${pid}_thorough.txt $out/check_$pid.txt; fi
-  fi
-fi
-if [ -z "$hits" ] || { ! grep -q "^VIOLATION" $out/check_$pid.txt && grep -q "no obligation was generated" $out/check_$pid.txt; }; then
-  (cd $V && python3 check.py $pid --tier $tier > $out/check_$pid.txt 2>$out/check_$pid.err; echo "exit=$? (tier $tier, full check; native sweep flagged nothing the restricted runs could decide)" >> $out/check_$pid.txt)
-fi
-tif [ -n "$hits" ]; then
-  (cd $V && VERIF_ONLY="$hits" python3 check.py $pid --tier $tier > $out/check_$pid.txt 2>$out/check_$pid.err; echo "exit=$? (tier $tier, restricted to the harnesses the native sweep flagged: $hits)" >> $out/check_$pid.txt)
-  if ! grep -q "^VIOLATION" $out/check_$pid.txt && [ "$tier" = quick ]; then
-    # the flagged harnesses may belong to the thorough tier only (larger bounds, slow ones)
-    (cd $V && VERIF_ONLY="$hits" python3 check.py $pid --tier thorough > $out/check_${pid}_thorough.txt 2>$out/check_${pid}_thorough.err; echo "exit=$? (tier thorough, restricted to the harnesses the native sweep flagged: $hits)" >> $out/check_${pid}_thorough.txt)
-    if grep -q "^VIOLATION" $out/check_${pid}_thorough.txt; then cp $out/check_${pid}_thorough.txt $out/check_$pid.txt; fi
-  fi
-fi
-if [ -z "$hits" ] || { ! grep -q "^VIOLATION" $out/check_$pid.txt && grep -q "no obligation was generated" $out/check_$pid.txt; }; then
-  (cd $V && python3 check.py $pid --tier $tier > $out/check_$pid.txt 2>$out/check_$pid.err; echo "exit=$? (tier $tier, full check; native sweep flagged nothing the restricted runs could decide)" >> $out/check_$pid.txt)
-fi
-iif [ -n "$hits" ]; then
-  (cd $V && VERIF_ONLY="$hits" python3 check.py $pid --tier $tier > $out/check_$pid.txt 2>$out/check_$pid.err; echo "exit=$? (tier $tier, restricted to the harnesses the native sweep flagged: $hits)" >> $out/check_$pid.txt)
-  if ! grep -q "^VIOLATION" $out/check_$pid.txt && [ "$tier" = quick ]; then
-    # the flagged harnesses may belong to the thorough tier only (larger bounds, slow ones)
-    (cd $V && VERIF_ONLY="$hits" python3 check.py $pid --tier thorough > $out/check_${pid}_thorough.txt 2>$out/check_${pid}_thorough.err; echo "exit=$? (tier thorough, restricted to the harnesses the native sweep flagged: $hits)" >> $out/check_${pid}_thorough.txt)
-    if grep -q "^VIOLATION" $out/check_${pid}_thorough.txt; then cp $out/check_${pid}_thorough.txt $out/check_$pid.txt; fi
-  fi
-fi
-if [ -z "$hits" ] || { ! grep -q "^VIOLATION" $out/check_$pid.txt && grep -q "no obligation was generated" $out/check_$pid.txt; }; then
-  (cd $V && python3 check.py $pid --tier $tier > $out/check_$pid.txt 2>$out/check_$pid.err; echo "exit=$? (tier $tier, full check; native sweep flagged nothing the restricted runs could decide)" >> $out/check_$pid.txt)
-fi
-oif [ -n "$hits" ]; then
-  (cd $V && VERIF_ONLY="$hits" python3 check.py $pid --tier $tier > $out/check_$pid.txt 2>$out/check_$pid.err; echo "exit=$? (tier $tier, restricted to the harnesses the native sweep flagged: $hits)" >> $out/check_$pid.txt)
-  if ! grep -q "^VIOLATION" $out/check_$pid.txt && [ "$tier" = quick ]; then
-    # the flagged harnesses may belong to the thorough tier only (larger bounds, slow ones)
-    (cd $V && VERIF_ONLY="$hits" python3 check.py $pid --tier thorough > $out/check_${pid}_thorough.txt 2>$out/check_${pid}_thorough.err; echo "exit=$? (tier thorough, restricted to the harnesses the native sweep flagged: $hits)" >> $out/check_${pid}_thorough.txt)
-    if grep -q "^VIOLATION" $out/check_${pid}_thorough.txt; then cp $out/check_${pid}_thorough.txt $out/check_$pid.txt; fi
-  fi
-fi
-if [ -z "$hits" ] || { ! grep -q "^VIOLATION" $out/check_$pid.txt && grep -q "no obligation was generated" $out/check_$pid.txt; }; then
-  (cd $V && python3 check.py $pid --tier $tier > $out/check_$pid.txt 2>$out/check_$pid.err; echo "exit=$? (tier $tier, full check; native sweep flagged nothing the restricted runs could decide)" >> $out/check_$pid.txt)
-fi
-nif [ -n "$hits" ]; then
-  (cd $V && VERIF_ONLY="$hits" python3 check.py $pid --tier $tier > $out/check_$pid.txt 2>$out/check_$pid.err; echo "exit=$? (tier $tier, restricted to the harnesses the native sweep flagged: $hits)" >> $out/check_$pid.txt)
-  if ! grep -q "^VIOLATION" $out/check_$pid.txt && [ "$tier" = quick ]; then
-    # the flagged harnesses may belong to the thorough tier only (larger bounds, slow ones)
-    (cd $V && VERIF_ONLY="$hits" python3 check.py $pid --tier thorough > $out/check_${pid}_thorough.txt 2>$out/check_${pid}_thorough.err; echo "exit=$? (tier thorough, restricted to the harnesses the native sweep flagged: $hits)" >> $out/check_${pid}_thorough.txt)
-    if grep -q "^VIOLATION" $out/check_${pid}_thorough.txt; then cp $out/check_${pid}_thorough.txt $out/check_$pid.txt; fi
-  fi
-fi
-if [ -z "$hits" ] || { ! grep -q "^VIOLATION" $out/check_$pid.txt && grep -q "no obligation was generated" $out/check_$pid.txt; }; then
-  (cd $V && python3 check.py $pid --tier $tier > $out/check_$pid.txt 2>$out/check_$pid.err; echo "exit=$? (tier $tier, full check; native sweep flagged nothing the restricted runs could decide)" >> $out/check_$pid.txt)
-fi
- if [ -n "$hits" ]; then
-  (cd $V && VERIF_ONLY="$hits" python3 check.py $pid --tier $tier > $out/check_$pid.txt 2>$out/check_$pid.err; echo "exit=$? (tier $tier, restricted to the harnesses the native sweep flagged: $hits)" >> $out/check_$pid.txt)
-  if ! grep -q "^VIOLATION" $out/check_$pid.txt && [ "$tier" = quick ]; then
-    # the flagged harnesses may belong to the thorough tier only (larger bounds, slow ones)
-    (cd $V && VERIF_ONLY="$hits" python3 check.py $pid --tier thorough > $out/check_${pid}_thorough.txt 2>$out/check_${pid}_thorough.err; echo "exit=$? (tier thorough, restricted to the harnesses the native sweep flagged: $hits)" >> $out/check_${pid}_thorough.txt)
-    if grep -q "^VIOLATION" $out/check_${pid}_thorough.txt; then cp $out/check_${pid}_thorough.txt $out/check_$pid.txt; fi
-  fi
-fi
-if [ -z "$hits" ] || { ! grep -q "^VIOLATION" $out/check_$pid.txt && grep -q "no obligation was generated" $out/check_$pid.txt; }; then
-  (cd $V && python3 check.py $pid --tier $tier > $out/check_$pid.txt 2>$out/check_$pid.err; echo "exit=$? (tier $tier, full check; native sweep flagged nothing the restricted runs could decide)" >> $out/check_$pid.txt)
-fi
-wif [ -n "$hits" ]; then
-  (cd $V && VERIF_ONLY="$hits" python3 check.py $pid --tier $tier > $out/check_$pid.txt 2>$out/check_$pid.err; echo "exit=$? (tier $tier, restricted to the harnesses the native sweep flagged: $hits)" >> $out/check_$pid.txt)
-  if ! grep -q "^VIOLATION" $out/check_$pid.txt && [ "$tier" = quick ]; then
-    # the flagged harnesses may belong to the thorough tier only (larger bounds, slow ones)
-    (cd $V && VERIF_ONLY="$hits" python3 check.py $pid --tier thorough > $out/check_${pid}_thorough.txt 2>$out/check_${pid}_thorough.err; echo "exit=$? (tier thorough, restricted to the harnesses the native sweep flagged: $hits)" >> $out/check_${pid}_thorough.txt)
-    if grep -q "^VIOLATION" $out/check_${pid}_thorough.txt; then cp $out/check_${pid}_thorough.txt $out/check_$pid.txt; fi
-  fi
-fi
-if [ -z "$hits" ] || { ! grep -q "^VIOLATION" $out/check_$pid.txt && grep -q "no obligation was generated" $out/check_$pid.txt; }; then
-  (cd $V && python3 check.py $pid --tier $tier > $out/check_$pid.txt 2>$out/check_$pid.err; echo "exit=$? (tier $tier, full check; native sweep flagged nothing the restricted runs could decide)" >> $out/check_$pid.txt)
-fi
-aif [ -n "$hits" ]; then
-  (cd $V && VERIF_ONLY="$hits" python3 check.py $pid --tier $tier > $out/check_$pid.txt 2>$out/check_$pid.err; echo "exit=$? (tier $tier, restricted to the harnesses the native sweep flagged: $hits)" >> $out/check_$pid.txt)
-  if ! grep -q "^VIOLATION" $out/check_$pid.txt && [ "$tier" = quick ]; then
-    # the flagged harnesses may belong to the thorough tier only (larger bounds, slow ones)
-    (cd $V && VERIF_ONLY="$hits" python3 check.py $pid --tier thorough > $out/check_${pid}_thorough.txt 2>$out/check_${pid}_thorough.err; echo "exit=$? (tier thorough, restricted to the harnesses the native sweep flagged: $hits)" >> $out/check_${pid}_thorough.txt)
-    if grep -q "^VIOLATION" $out/check_${pid}_thorough.txt; then cp $out/check_${pid}_thorough.txt $out/check_$pid.txt; fi
-  fi
-fi
-if [ -z "$hits" ] || { ! grep -q "^VIOLATION" $out/check_$pid.txt && grep -q "no obligation was generated" $out/check_$pid.txt; }; then
-  (cd $V && python3 check.py $pid --tier $tier > $out/check_$pid.txt 2>$out/check_$pid.err; echo "exit=$? (tier $tier, full check; native sweep flagged nothing the restricted runs could decide)" >> $out/check_$pid.txt)
-fi
-sif [ -n "$hits" ]; then
-  (cd $V && VERIF_ONLY="$hits" python3 check.py $pid --tier $tier > $out/check_$pid.txt 2>$out/check_$pid.err; echo "exit=$? (tier $tier, restricted to the harnesses the native sweep flagged: $hits)" >> $out/check_$pid.txt)
-  if ! grep -q "^VIOLATION" $out/check_$pid.txt && [ "$tier" = quick ]; then
-    # the flagged harnesses may belong to the thorough tier only (larger bounds, slow ones)
-    (cd $V && VERIF_ONLY="$hits" python3 check.py $pid --tier thorough > $out/check_${pid}_thorough.txt 2>$out/check_${pid}_thorough.err; echo "exit=$? (tier thorough, restricted to the harnesses the native sweep flagged: $hits)" >> $out/check_${pid}_thorough.txt)
-    if grep -q "^VIOLATION" $out/check_${pid}_thorough.txt; then cp $out/check_${pid}_thorough.txt $out/check_$pid.txt; fi
-  fi
-fi
-if [ -z "$hits" ] || { ! grep -q "^VIOLATION" $out/check_$pid.txt && grep -q "no obligation was generated" $out/check_$pid.txt; }; then
-  (cd $V && python3 check.py $pid --tier $tier > $out/check_$pid.txt 2>$out/check_$pid.err; echo "exit=$? (tier $tier, full check; native sweep flagged nothing the restricted runs could decide)" >> $out/check_$pid.txt)
-fi
- if [ -n "$hits" ]; then
-  (cd $V && VERIF_ONLY="$hits" python3 check.py $pid --tier $tier > $out/check_$pid.txt 2>$out/check_$pid.err; echo "exit=$? (tier $tier, restricted to the harnesses the native sweep flagged: $hits)" >> $out/check_$pid.txt)
-  if ! grep -q "^VIOLATION" $out/check_$pid.txt && [ "$tier" = quick ]; then
-    # the flagged harnesses may belong to the thorough tier only (larger bounds, slow ones)
-    (cd $V && VERIF_ONLY="$hits" python3 check.py $pid --tier thorough > $out/check_${pid}_thorough.txt 2>$out/check_${pid}_thorough.err; echo "exit=$? (tier thorough, restricted to the harnesses the native sweep flagged: $hits)" >> $out/check_${pid}_thorough.txt)
-    if grep -q "^VIOLATION" $out/check_${pid}_thorough.txt; then cp $out/check_${pid}_thorough.txt $out/check_$pid.txt; fi
-  fi
-fi
-if [ -z "$hits" ] || { ! grep -q "^VIOLATION" $out/check_$pid.txt && grep -q "no obligation was generated" $out/check_$pid.txt; }; then
-  (cd $V && python3 check.py $pid --tier $tier > $out/check_$pid.txt 2>$out/check_$pid.err; echo "exit=$? (tier $tier, full check; native sweep flagged nothing the restricted runs could decide)" >> $out/check_$pid.txt)
-fi
-gif [ -n "$hits" ]; then
-  (cd $V && VERIF_ONLY="$hits" python3 check.py $pid --tier $tier > $out/check_$pid.txt 2>$out/check_$pid.err; echo "exit=$? (tier $tier, restricted to the harnesses the native sweep flagged: $hits)" >> $out/check_$pid.txt)
-  if ! grep -q "^VIOLATION" $out/check_$pid.txt && [ "$tier" = quick ]; then
-    # the flagged harnesses may belong to the thorough tier only (larger bounds, slow ones)
-    (cd $V && VERIF_ONLY="$hits" python3 check.py $pid --tier thorough > $out/check_${pid}_thorough.txt 2>$out/check_${pid}_thorough.err; echo "exit=$? (tier thorough, restricted to the harnesses the native sweep flagged: $hits)" >> $out/check_${pid}_thorough.txt)
-    if grep -q "^VIOLATION" $out/check_${pid}_thorough.txt; then cp $out/check_${pid}_thorough.txt $out/check_$pid.txt; fi
-  fi
-fi
-if [ -z "$hits" ] || { ! grep -q "^VIOLATION" $out/check_$pid.txt && grep -q "no obligation was generated" $out/check_$pid.txt; }; then
-  (cd $V && python3 check.py $pid --tier $tier > $out/check_$pid.txt 2>$out/check_$pid.err; echo "exit=$? (tier $tier, full check; native sweep flagged nothing the restricted runs could decide)" >> $out/check_$pid.txt)
-fi
-eif [ -n "$hits" ]; then
-  (cd $V && VERIF_ONLY="$hits" python3 check.py $pid --tier $tier > $out/check_$pid.txt 2>$out/check_$pid.err; echo "exit=$? (tier $tier, restricted to the harnesses the native sweep flagged: $hits)" >> $out/check_$pid.txt)
-  if ! grep -q "^VIOLATION" $out/check_$pid.txt && [ "$tier" = quick ]; then
-    # the flagged harnesses may belong to the thorough tier only (larger bounds, slow ones)
-    (cd $V && VERIF_ONLY="$hits" python3 check.py $pid --tier thorough > $out/check_${pid}_thorough.txt 2>$out/check_${pid}_thorough.err; echo "exit=$? (tier thorough, restricted to the harnesses the native sweep flagged: $hits)" >> $out/check_${pid}_thorough.txt)
-    if grep -q "^VIOLATION" $out/check_${pid}_thorough.txt; then cp $out/check_${pid}_thorough.txt $out/check_$pid.txt; fi
-  fi
-fi
-if [ -z "$hits" ] || { ! grep -q "^VIOLATION" $out/check_$pid.txt && grep -q "no obligation was generated" $out/check_$pid.txt; }; then
-  (cd $V && python3 check.py $pid --tier $tier > $out/check_$pid.txt 2>$out/check_$pid.err; echo "exit=$? (tier $tier, full check; native sweep flagged nothing the restricted runs could decide)" >> $out/check_$pid.txt)
-fi
-nif [ -n "$hits" ]; then
-  (cd $V && VERIF_ONLY="$hits" python3 check.py $pid --tier $tier > $out/check_$pid.txt 2>$out/check_$pid.err; echo "exit=$? (tier $tier, restricted to the harnesses the native sweep flagged: $hits)" >> $out/check_$pid.txt)
-  if ! grep -q "^VIOLATION" $out/check_$pid.txt && [ "$tier" = quick ]; then
-    # the flagged harnesses may belong to the thorough tier only (larger bounds, slow ones)
-    (cd $V && VERIF_ONLY="$hits" python3 check.py $pid --tier thorough > $out/check_${pid}_thorough.txt 2>$out/check_${pid}_thorough.err; echo "exit=$? (tier thorough, restricted to the harnesses the native sweep flagged: $hits)" >> $out/check_${pid}_thorough.txt)
-    if grep -q "^VIOLATION" $out/check_${pid}_thorough.txt; then cp $out/check_${pid}_thorough.txt $out/check_$pid.txt; fi
-  fi
-fi
-if [ -z "$hits" ] || { ! grep -q "^VIOLATION" $out/check_$pid.txt && grep -q "no obligation was generated" $out/check_$pid.txt; }; then
-  (cd $V && python3 check.py $pid --tier $tier > $out/check_$pid.txt 2>$out/check_$pid.err; echo "exit=$? (tier $tier, full check; native sweep flagged nothing the restricted runs could decide)" >> $out/check_$pid.txt)
-fi
-eif [ -n "$hits" ]; then
-  (cd $V && VERIF_ONLY="$hits" python3 check.py $pid --tier $tier > $out/check_$pid.txt 2>$out/check_$pid.err; echo "exit=$? (tier $tier, restricted to the harnesses the native sweep flagged: $hits)" >> $out/check_$pid.txt)
-  if ! grep -q "^VIOLATION" $out/check_$pid.txt && [ "$tier" = quick ]; then
-    # the flagged harnesses may belong to the thorough tier only (larger bounds, slow ones)
-    (cd $V && VERIF_ONLY="$hits" python3 check.py $pid --tier thorough > $out/check_${pid}_thorough.txt 2>$out/check_${pid}_thorough.err; echo "exit=$? (tier thorough, restricted to the harnesses the native sweep flagged: $hits)" >> $out/check_${pid}_thorough.txt)
-    if grep -q "^VIOLATION" $out/check_${pid}_thorough.txt; then cp $out/check_${pid}_thorough.txt $out/check_$pid.txt; fi
-  fi
-fi
-if [ -z "$hits" ] || { ! grep -q "^VIOLATION" $out/check_$pid.txt && grep -q "no obligation was generated" $out/check_$pid.txt; }; then
-  (cd $V && python3 check.py $pid --tier $tier > $out/check_$pid.txt 2>$out/check_$pid.err; echo "exit=$? (tier $tier, full check; native sweep flagged nothing the restricted runs could decide)" >> $out/check_$pid.txt)
-fi
-rif [ -n "$hits" ]; then
-  (cd $V && VERIF_ONLY="$hits" python3 check.py $pid --tier $tier > $out/check_$pid.txt 2>$out/check_$pid.err; echo "exit=$? (tier $tier, restricted to the harnesses the native sweep flagged: $hits)" >> $out/check_$pid.txt)
-  if ! grep -q "^VIOLATION" $out/check_$pid.txt && [ "$tier" = quick ]; then
-    # the flagged harnesses may belong to the thorough tier only (larger bounds, slow ones)
-    (cd $V && VERIF_ONLY="$hits" python3 check.py $pid --tier thorough > $out/check_${pid}_thorough.txt 2>$out/check_${pid}_thorough.err; echo "exit=$? (tier thorough, restricted to the harnesses the native sweep flagged: $hits)" >> $out/check_${pid}_thorough.txt)
-    if grep -q "^VIOLATION" $out/check_${pid}_thorough.txt; then cp $out/check_${pid}_thorough.txt $out/check_$pid.txt; fi
-  fi
-fi
-if [ -z "$hits" ] || { ! grep -q "^VIOLATION" $out/check_$pid.txt && grep -q "no obligation was generated" $out/check_$pid.txt; }; then
-  (cd $V && python3 check.py $pid --tier $tier > $out/check_$pid.txt 2>$out/check_$pid.err; echo "exit=$? (tier $tier, full check; native sweep flagged nothing the restricted runs could decide)" >> $out/check_$pid.txt)
-fi
-aif [ -n "$hits" ]; then
-  (cd $V && VERIF_ONLY="$hits" python3 check.py $pid --tier $tier > $out/check_$pid.txt 2>$out/check_$pid.err; echo "exit=$? (tier $tier, restricted to the harnesses the native sweep flagged: $hits)" >> $out/check_$pid.txt)
-  if ! grep -q "^VIOLATION" $out/check_$pid.txt && [ "$tier" = quick ]; then
-    # the flagged harnesses may belong to the thorough tier only (larger bounds, slow ones)
-    (cd $V && VERIF_ONLY="$hits" python3 check.py $pid --tier thorough > $out/check_${pid}_thorough.txt 2>$out/check_${pid}_thorough.err; echo "exit=$? (tier thorough, restricted to the harnesses the native sweep flagged: $hits)" >> $out/check_${pid}_thorough.txt)
-    if grep -q "^VIOLATION" $out/check_${pid}_thorough.txt; then cp $out/check_${pid}_thorough.txt $out/check_$pid.txt; fi
-  fi
-fi
-if [ -z "$hits" ] || { ! grep -q "^VIOLATION" $out/check_$pid.txt && grep -q "no obligation was generated" $out/check_$pid.txt; }; then
-  (cd $V && python3 check.py $pid --tier $tier > $out/check_$pid.txt 2>$out/check_$pid.err; echo "exit=$? (tier $tier, full check; native sweep flagged nothing the restricted runs could decide)" >> $out/check_$pid.txt)
-fi
-tif [ -n "$hits" ]; then
-  (cd $V && VERIF_ONLY="$hits" python3 check.py $pid --tier $tier > $out/check_$pid.txt 2>$out/check_$pid.err; echo "exit=$? (tier $tier, restricted to the harnesses the native sweep flagged: $hits)" >> $out/check_$pid.txt)
-  if ! grep -q "^VIOLATION" $out/check_$pid.txt && [ "$tier" = quick ]; then
-    # the flagged harnesses may belong to the thorough tier only (larger bounds, slow ones)
-    (cd $V && VERIF_ONLY="$hits" python3 check.py $pid --tier thorough > $out/check_${pid}_thorough.txt 2>$out/check_${pid}_thorough.err; echo "exit=$? (tier thorough, restricted to the harnesses the native sweep flagged: $hits)" >> $out/check_${pid}_thorough.txt)
-    if grep -q "^VIOLATION" $out/check_${pid}_thorough.txt; then cp $out/check_${pid}_thorough.txt $out/check_$pid.txt; fi
-  fi
-fi
-if [ -z "$hits" ] || { ! grep -q "^VIOLATION" $out/check_$pid.txt && grep -q "no obligation was generated" $out/check_$pid.txt; }; then
-  (cd $V && python3 check.py $pid --tier $tier > $out/check_$pid.txt 2>$out/check_$pid.err; echo "exit=$? (tier $tier, full check; native sweep flagged nothing the restricted runs could decide)" >> $out/check_$pid.txt)
-fi
-eif [ -n "$hits" ]; then
-  (cd $V && VERIF_ONLY="$hits" python3 check.py $pid --tier $tier > $out/check_$pid.txt 2>$out/check_$pid.err; echo "exit=$? (tier $tier, restricted to the harnesses the native sweep flagged: $hits)" >> $out/check_$pid.txt)
-  if ! grep -q "^VIOLATION" $out/check_$pid.txt && [ "$tier" = quick ]; then
-    # the flagged harnesses may belong to the thorough tier only (larger bounds, slow ones)
-    (cd $V && VERIF_ONLY="$hits" python3 check.py $pid --tier thorough > $out/check_${pid}_thorough.txt 2>$out/check_${pid}_thorough.err; echo "exit=$? (tier thorough, restricted to the harnesses the native sweep flagged: $hits)" >> $out/check_${pid}_thorough.txt)
-    if grep -q "^VIOLATION" $out/check_${pid}_thorough.txt; then cp $out/check_${pid}_thorough.txt $out/check_$pid.txt; fi
-  fi
-fi
-if [ -z "$hits" ] || { ! grep -q "^VIOLATION" $out/check_$pid.txt && grep -q "no obligation was generated" $out/check_$pid.txt; }; then
-  (cd $V && python3 check.py $pid --tier $tier > $out/check_$pid.txt 2>$out/check_$pid.err; echo "exit=$? (tier $tier, full check; native sweep flagged nothing the restricted runs could decide)" >> $out/check_$pid.txt)
-fi
-dif [ -n "$hits" ]; then
-  (cd $V && VERIF_ONLY="$hits" python3 check.py $pid --tier $tier > $out/check_$pid.txt 2>$out/check_$pid.err; echo "exit=$? (tier $tier, restricted to the harnesses the native sweep flagged: $hits)" >> $out/check_$pid.txt)
-  if ! grep -q "^VIOLATION" $out/check_$pid.txt && [ "$tier" = quick ]; then
-    # the flagged harnesses may belong to the thorough tier only (larger bounds, slow ones)
-    (cd $V && VERIF_ONLY="$hits" python3 check.py $pid --tier thorough > $out/check_${pid}_thorough.txt 2>$out/check_${pid}_thorough.err; echo "exit=$? (tier thorough, restricted to the harnesses the native sweep flagged: $hits)" >> $out/check_${pid}_thorough.txt)
-    if grep -q "^VIOLATION" $out/check_${pid}_thorough.txt; then cp $out/check_${pid}_thorough.txt $out/check_$pid.txt; fi
-  fi
-fi
-if [ -z "$hits" ] || { ! grep -q "^VIOLATION" $out/check_$pid.txt && grep -q "no obligation was generated" $out/check_$pid.txt; }; then
-  (cd $V && python3 check.py $pid --tier $tier > $out/check_$pid.txt 2>$out/check_$pid.err; echo "exit=$? (tier $tier, full check; native sweep flagged nothing the restricted runs could decide)" >> $out/check_$pid.txt)
-fi
-"if [ -n "$hits" ]; then
-  (cd $V && VERIF_ONLY="$hits" python3 check.py $pid --tier $tier > $out/check_$pid.txt 2>$out/check_$pid.err; echo "exit=$? (tier $tier, restricted to the harnesses the native sweep flagged: $hits)" >> $out/check_$pid.txt)
-  if ! grep -q "^VIOLATION" $out/check_$pid.txt && [ "$tier" = quick ]; then
-    # the flagged harnesses may belong to the thorough tier only (larger bounds, slow ones)
-    (cd $V && VERIF_ONLY="$hits" python3 check.py $pid --tier thorough > $out/check_${pid}_thorough.txt 2>$out/check_${pid}_thorough.err; echo "exit=$? (tier thorough, restricted to the harnesses the native sweep flagged: $hits)" >> $out/check_${pid}_thorough.txt)
-    if grep -q "^VIOLATION" $out/check_${pid}_thorough.txt; then cp $out/check_${pid}_thorough.txt $out/check_$pid.txt; fi
-  fi
-fi
-if [ -z "$hits" ] || { ! grep -q "^VIOLATION" $out/check_$pid.txt && grep -q "no obligation was generated" $out/check_$pid.txt; }; then
-  (cd $V && python3 check.py $pid --tier $tier > $out/check_$pid.txt 2>$out/check_$pid.err; echo "exit=$? (tier $tier, full check; native sweep flagged nothing the restricted runs could decide)" >> $out/check_$pid.txt)
-fi
- if [ -n "$hits" ]; then
-  (cd $V && VERIF_ONLY="$hits" python3 check.py $pid --tier $tier > $out/check_$pid.txt 2>$out/check_$pid.err; echo "exit=$? (tier $tier, restricted to the harnesses the native sweep flagged: $hits)" >> $out/check_$pid.txt)
-  if ! grep -q "^VIOLATION" $out/check_$pid.txt && [ "$tier" = quick ]; then
-    # the flagged harnesses may belong to the thorough tier only (larger bounds, slow ones)
-    (cd $V && VERIF_ONLY="$hits" python3 check.py $pid --tier thorough > $out/check_${pid}_thorough.txt 2>$out/check_${pid}_thorough.err; echo "exit=$? (tier thorough, restricted to the harnesses the native sweep flagged: $hits)" >> $out/check_${pid}_thorough.txt)
-    if grep -q "^VIOLATION" $out/check_${pid}_thorough.txt; then cp $out/check_${pid}_thorough.txt $out/check_$pid.txt; fi
-  fi
-fi
-if [ -z "$hits" ] || { ! grep -q "^VIOLATION" $out/check_$pid.txt && grep -q "no obligation was generated" $out/check_$pid.txt; }; then
-  (cd $V && python3 check.py $pid --tier $tier > $out/check_$pid.txt 2>$out/check_$pid.err; echo "exit=$? (tier $tier, full check; native sweep flagged nothing the restricted runs could decide)" >> $out/check_$pid.txt)
-fi
-$if [ -n "$hits" ]; then
-  (cd $V && VERIF_ONLY="$hits" python3 check.py $pid --tier $tier > $out/check_$pid.txt 2>$out/check_$pid.err; echo "exit=$? (tier $tier, restricted to the harnesses the native sweep flagged: $hits)" >> $out/check_$pid.txt)
-  if ! grep -q "^VIOLATION" $out/check_$pid.txt && [ "$tier" = quick ]; then
-    # the flagged harnesses may belong to the thorough tier only (larger bounds, slow ones)
-    (cd $V && VERIF_ONLY="$hits" python3 check.py $pid --tier thorough > $out/check_${pid}_thorough.txt 2>$out/check_${pid}_thorough.err; echo "exit=$? (tier thorough, restricted to the harnesses the native sweep flagged: $hits)" >> $out/check_${pid}_thorough.txt)
-    if grep -q "^VIOLATION" $out/check_${pid}_thorough.txt; then cp $out/check_${pid}_thorough.txt $out/check_$pid.txt; fi
-  fi
-fi
-if [ -z "$hits" ] || { ! grep -q "^VIOLATION" $out/check_$pid.txt && grep -q "no obligation was generated" $out/check_$pid.txt; }; then
-  (cd $V && python3 check.py $pid --tier $tier > $out/check_$pid.txt 2>$out/check_$pid.err; echo "exit=$? (tier $tier, full check; native sweep flagged nothing the restricted runs could decide)" >> $out/check_$pid.txt)
-fi
-oif [ -n "$hits" ]; then
-  (cd $V && VERIF_ONLY="$hits" python3 check.py $pid --tier $tier > $out/check_$pid.txt 2>$out/check_$pid.err; echo "exit=$? (tier $tier, restricted to the harnesses the native sweep flagged: $hits)" >> $out/check_$pid.txt)
-  if ! grep -q "^VIOLATION" $out/check_$pid.txt && [ "$tier" = quick ]; then
-    # the flagged harnesses may belong to the thorough tier only (larger bounds, slow ones)
-    (cd $V && VERIF_ONLY="$hits" python3 check.py $pid --tier thorough > $out/check_${pid}_thorough.txt 2>$out/check_${pid}_thorough.err; echo "exit=$? (tier thorough, restricted to the harnesses the native sweep flagged: $hits)" >> $out/check_${pid}_thorough.txt)
-    if grep -q "^VIOLATION" $out/check_${pid}_thorough.txt; then cp $out/check_${pid}_thorough.txt $out/check_$pid.txt; fi
-  fi
-fi
-if [ -z "$hits" ] || { ! grep -q "^VIOLATION" $out/check_$pid.txt && grep -q "no obligation was generated" $out/check_$pid.txt; }; then
-  (cd $V && python3 check.py $pid --tier $tier > $out/check_$pid.txt 2>$out/check_$pid.err; echo "exit=$? (tier $tier, full check; native sweep flagged nothing the restricted runs could decide)" >> $out/check_$pid.txt)
-fi
-uif [ -n "$hits" ]; then
-  (cd $V && VERIF_ONLY="$hits" python3 check.py $pid --tier $tier > $out/check_$pid.txt 2>$out/check_$pid.err; echo "exit=$? (tier $tier, restricted to the harnesses the native sweep flagged: $hits)" >> $out/check_$pid.txt)
-  if ! grep -q "^VIOLATION" $out/check_$pid.txt && [ "$tier" = quick ]; then
-    # the flagged harnesses may belong to the thorough tier only (larger bounds, slow ones)
-    (cd $V && VERIF_ONLY="$hits" python3 check.py $pid --tier thorough > $out/check_${pid}_thorough.txt 2>$out/check_${pid}_thorough.err; echo "exit=$? (tier thorough, restricted to the harnesses the native sweep flagged: $hits)" >> $out/check_${pid}_thorough.txt)
-    if grep -q "^VIOLATION" $out/check_${pid}_thorough.txt; then cp $out/check_${pid}_thorough.txt $out/check_$pid.txt; fi
-  fi
-fi
-if [ -z "$hits" ] || { ! grep -q "^VIOLATION" $out/check_$pid.txt && grep -q "no obligation was generated" $out/check_$pid.txt; }; then
-  (cd $V && python3 check.py $pid --tier $tier > $out/check_$pid.txt 2>$out/check_$pid.err; echo "exit=$? (tier $tier, full check; native sweep flagged nothing the restricted runs could decide)" >> $out/check_$pid.txt)
-fi
-tif [ -n "$hits" ]; then
-  (cd $V && VERIF_ONLY="$hits" python3 check.py $pid --tier $tier > $out/check_$pid.txt 2>$out/check_$pid.err; echo "exit=$? (tier $tier, restricted to the harnesses the native sweep flagged: $hits)" >> $out/check_$pid.txt)
-  if ! grep -q "^VIOLATION" $out/check_$pid.txt && [ "$tier" = quick ]; then
-    # the flagged harnesses may belong to the thorough tier only (larger bounds, slow ones)
-    (cd $V && VERIF_ONLY="$hits" python3 check.py $pid --tier thorough > $out/check_${pid}_thorough.txt 2>$out/check_${pid}_thorough.err; echo "exit=$? (tier thorough, restricted to the harnesses the native sweep flagged: $hits)" >> $out/check_${pid}_thorough.txt)
-    if grep -q "^VIOLATION" $out/check_${pid}_thorough.txt; then cp $out/check_${pid}_thorough.txt $out/check_$pid.txt; fi
-  fi
-fi
-if [ -z "$hits" ] || { ! grep -q "^VIOLATION" $out/check_$pid.txt && grep -q "no obligation was generated" $out/check_$pid.txt; }; then
-  (cd $V && python3 check.py $pid --tier $tier > $out/check_$pid.txt 2>$out/check_$pid.err; echo "exit=$? (tier $tier, full check; native sweep flagged nothing the restricted runs could decide)" >> $out/check_$pid.txt)
-fi
-/if [ -n "$hits" ]; then
-  (cd $V && VERIF_ONLY="$hits" python3 check.py $pid --tier $tier > $out/check_$pid.txt 2>$out/check_$pid.err; echo "exit=$? (tier $tier, restricted to the harnesses the native sweep flagged: $hits)" >> $out/check_$pid.txt)
-  if ! grep -q "^VIOLATION" $out/check_$pid.txt && [ "$tier" = quick ]; then
-    # the flagged harnesses may belong to the thorough tier only (larger bounds, slow ones)
-    (cd $V && VERIF_ONLY="$hits" python3 check.py $pid --tier thorough > $out/check_${pid}_thorough.txt 2>$out/check_${pid}_thorough.err; echo "exit=$? (tier thorough, restricted to the harnesses the native sweep flagged: $hits)" >> $out/check_${pid}_thorough.txt)
-    if grep -q "^VIOLATION" $out/check_${pid}_thorough.txt; then cp $out/check_${pid}_thorough.txt $out/check_$pid.txt; fi
-  fi
-fi
-if [ -z "$hits" ] || { ! grep -q "^VIOLATION" $out/check_$pid.txt && grep -q "no obligation was generated" $out/check_$pid.txt; }; then
-  (cd $V && python3 check.py $pid --tier $tier > $out/check_$pid.txt 2>$out/check_$pid.err; echo "exit=$? (tier $tier, full check; native sweep flagged nothing the restricted runs could decide)" >> $out/check_$pid.txt)
-fi
-cif [ -n "$hits" ]; then
-  (cd $V && VERIF_ONLY="$hits" python3 check.py $pid --tier $tier > $out/check_$pid.txt 2>$out/check_$pid.err; echo "exit=$? (tier $tier, restricted to the harnesses the native sweep flagged: $hits)" >> $out/check_$pid.txt)
-  if ! grep -q "^VIOLATION" $out/check_$pid.txt && [ "$tier" = quick ]; then
-    # the flagged harnesses may belong to the thorough tier only (larger bounds, slow ones)
-    (cd $V && VERIF_ONLY="$hits" python3 check.py $pid --tier thorough > $out/check_${pid}_thorough.txt 2>$out/check_${pid}_thorough.err; echo "exit=$? (tier thorough, restricted to the harnesses the native sweep flagged: $hits)" >> $out/check_${pid}_thorough.txt)
-    if grep -q "^VIOLATION" $out/check_${pid}_thorough.txt; then cp $out/check_${pid}_thorough.txt $out/check_$pid.txt; fi
-  fi
-fi
-if [ -z "$hits" ] || { ! grep -q "^VIOLATION" $out/check_$pid.txt && grep -q "no obligation was generated" $out/check_$pid.txt; }; then
-  (cd $V && python3 check.py $pid --tier $tier > $out/check_$pid.txt 2>$out/check_$pid.err; echo "exit=$? (tier $tier, full check; native sweep flagged nothing the restricted runs could decide)" >> $out/check_$pid.txt)
-fi
-hif [ -n "$hits" ]; then
-  (cd $V && VERIF_ONLY="$hits" python3 check.py $pid --tier $tier > $out/check_$pid.txt 2>$out/check_$pid.err; echo "exit=$? (tier $tier, restricted to the harnesses the native sweep flagged: $hits)" >> $out/check_$pid.txt)
-  if ! grep -q "^VIOLATION" $out/check_$pid.txt && [ "$tier" = quick ]; then
-    # the flagged harnesses may belong to the thorough tier only (larger bounds, slow ones)
-    (cd $V && VERIF_ONLY="$hits" python3 check.py $pid --tier thorough > $out/check_${pid}_thorough.txt 2>$out/check_${pid}_thorough.err; echo "exit=$? (tier thorough, restricted to the harnesses the native sweep flagged: $hits)" >> $out/check_${pid}_thorough.txt)
-    if grep -q "^VIOLATION" $out/check_${pid}_thorough.txt; then cp $out/check_${pid}_thorough.txt $out/check_$pid.txt; fi
-  fi
-fi
-if [ -z "$hits" ] || { ! grep -q "^VIOLATION" $out/check_$pid.txt && grep -q "no obligation was generated" $out/check_$pid.txt; }; then
-  (cd $V && python3 check.py $pid --tier $tier > $out/check_$pid.txt 2>$out/check_$pid.err; echo "exit=$? (tier $tier, full check; native sweep flagged nothing the restricted runs could decide)" >> $out/check_$pid.txt)
-fi
-eif [ -n "$hits" ]; then
-  (cd $V && VERIF_ONLY="$hits" python3 check.py $pid --tier $tier > $out/check_$pid.txt 2>$out/check_$pid.err; echo "exit=$? (tier $tier, restricted to the harnesses the native sweep flagged: $hits)" >> $out/check_$pid.txt)
-  if ! grep -q "^VIOLATION" $out/check_$pid.txt && [ "$tier" = quick ]; then
-    # the flagged harnesses may belong to the thorough tier only (larger bounds, slow ones)
-    (cd $V && VERIF_ONLY="$hits" python3 check.py $pid --tier thorough > $out/check_${pid}_thorough.txt 2>$out/check_${pid}_thorough.err; echo "exit=$? (tier thorough, restricted to the harnesses the native sweep flagged: $hits)" >> $out/check_${pid}_thorough.txt)
-    if grep -q "^VIOLATION" $out/check_${pid}_thorough.txt; then cp $out/check_${pid}_thorough.txt $out/check_$pid.txt; fi
-  fi
-fi
-if [ -z "$hits" ] || { ! grep -q "^VIOLATION" $out/check_$pid.txt && grep -q "no obligation was generated" $out/check_$pid.txt; }; then
-  (cd $V && python3 check.py $pid --tier $tier > $out/check_$pid.txt 2>$out/check_$pid.err; echo "exit=$? (tier $tier, full check; native sweep flagged nothing the restricted runs could decide)" >> $out/check_$pid.txt)
-fi
-cif [ -n "$hits" ]; then
-  (cd $V && VERIF_ONLY="$hits" python3 check.py $pid --tier $tier > $out/check_$pid.txt 2>$out/check_$pid.err; echo "exit=$? (tier $tier, restricted to the harnesses the native sweep flagged: $hits)" >> $out/check_$pid.txt)
-  if ! grep -q "^VIOLATION" $out/check_$pid.txt && [ "$tier" = quick ]; then
-    # the flagged harnesses may belong to the thorough tier only (larger bounds, slow ones)
-    (cd $V && VERIF_ONLY="$hits" python3 check.py $pid --tier thorough > $out/check_${pid}_thorough.txt 2>$out/check_${pid}_thorough.err; echo "exit=$? (tier thorough, restricted to the harnesses the native sweep flagged: $hits)" >> $out/check_${pid}_thorough.txt)
-    if grep -q "^VIOLATION" $out/check_${pid}_thorough.txt; then cp $out/check_${pid}_thorough.txt $out/check_$pid.txt; fi
-  fi
-fi
-if [ -z "$hits" ] || { ! grep -q "^VIOLATION" $out/check_$pid.txt && grep -q "no obligation was generated" $out/check_$pid.txt; }; then
-  (cd $V && python3 check.py $pid --tier $tier > $out/check_$pid.txt 2>$out/check_$pid.err; echo "exit=$? (tier $tier, full check; native sweep flagged nothing the restricted runs could decide)" >> $out/check_$pid.txt)
-fi
-kif [ -n "$hits" ]; then
-  (cd $V && VERIF_ONLY="$hits" python3 check.py $pid --tier $tier > $out/check_$pid.txt 2>$out/check_$pid.err; echo "exit=$? (tier $tier, restricted to the harnesses the native sweep flagged: $hits)" >> $out/check_$pid.txt)
-  if ! grep -q "^VIOLATION" $out/check_$pid.txt && [ "$tier" = quick ]; then
-    # the flagged harnesses may belong to the thorough tier only (larger bounds, slow ones)
-    (cd $V && VERIF_ONLY="$hits" python3 check.py $pid --tier thorough > $out/check_${pid}_thorough.txt 2>$out/check_${pid}_thorough.err; echo "exit=$? (tier thorough, restricted to the harnesses the native sweep flagged: $hits)" >> $out/check_${pid}_thorough.txt)
-    if grep -q "^VIOLATION" $out/check_${pid}_thorough.txt; then cp $out/check_${pid}_thorough.txt $out/check_$pid.txt; fi
-  fi
-fi
-if [ -z "$hits" ] || { ! grep -q "^VIOLATION" $out/check_$pid.txt && grep -q "no obligation was generated" $out/check_$pid.txt; }; then
-  (cd $V && python3 check.py $pid --tier $tier > $out/check_$pid.txt 2>$out/check_$pid.err; echo "exit=$? (tier $tier, full check; native sweep flagged nothing the restricted runs could decide)" >> $out/check_$pid.txt)
-fi
-_if [ -n "$hits" ]; then
-  (cd $V && VERIF_ONLY="$hits" python3 check.py $pid --tier $tier > $out/check_$pid.txt 2>$out/check_$pid.err; echo "exit=$? (tier $tier, restricted to the harnesses the native sweep flagged: $hits)" >> $out/check_$pid.txt)
-  if ! grep -q "^VIOLATION" $out/check_$pid.txt && [ "$tier" = quick ]; then
-    # the flagged harnesses may belong to the thorough tier only (larger bounds, slow ones)
-    (cd $V && VERIF_ONLY="$hits" python3 check.py $pid --tier thorough > $out/check_${pid}_thorough.txt 2>$out/check_${pid}_thorough.err; echo "exit=$? (tier thorough, restricted to the harnesses the native sweep flagged: $hits)" >> $out/check_${pid}_thorough.txt)
-    if grep -q "^VIOLATION" $out/check_${pid}_thorough.txt; then cp $out/check_${pid}_thorough.txt $out/check_$pid.txt; fi
-  fi
-fi
-if [ -z "$hits" ] || { ! grep -q "^VIOLATION" $out/check_$pid.txt && grep -q "no obligation was generated" $out/check_$pid.txt; }; then
-  (cd $V && python3 check.py $pid --tier $tier > $out/check_$pid.txt 2>$out/check_$pid.err; echo "exit=$? (tier $tier, full check; native sweep flagged nothing the restricted runs could decide)" >> $out/check_$pid.txt)
-fi
-$if [ -n "$hits" ]; then
-  (cd $V && VERIF_ONLY="$hits" python3 check.py $pid --tier $tier > $out/check_$pid.txt 2>$out/check_$pid.err; echo "exit=$? (tier $tier, restricted to the harnesses the native sweep flagged: $hits)" >> $out/check_$pid.txt)
-  if ! grep -q "^VIOLATION" $out/check_$pid.txt && [ "$tier" = quick ]; then
-    # the flagged harnesses may belong to the thorough tier only (larger bounds, slow ones)
-    (cd $V && VERIF_ONLY="$hits" python3 check.py $pid --tier thorough > $out/check_${pid}_thorough.txt 2>$out/check_${pid}_thorough.err; echo "exit=$? (tier thorough, restricted to the harnesses the native sweep flagged: $hits)" >> $out/check_${pid}_thorough.txt)
-    if grep -q "^VIOLATION" $out/check_${pid}_thorough.txt; then cp $out/check_${pid}_thorough.txt $out/check_$pid.txt; fi
-  fi
-fi
-if [ -z "$hits" ] || { ! grep -q "^VIOLATION" $out/check_$pid.txt && grep -q "no obligation was generated" $out/check_$pid.txt; }; then
-  (cd $V && python3 check.py $pid --tier $tier > $out/check_$pid.txt 2>$out/check_$pid.err; echo "exit=$? (tier $tier, full check; native sweep flagged nothing the restricted runs could decide)" >> $out/check_$pid.txt)
-fi
-pif [ -n "$hits" ]; then
-  (cd $V && VERIF_ONLY="$hits" python3 check.py $pid --tier $tier > $out/check_$pid.txt 2>$out/check_$pid.err; echo "exit=$? (tier $tier, restricted to the harnesses the native sweep flagged: $hits)" >> $out/check_$pid.txt)
-  if ! grep -q "^VIOLATION" $out/check_$pid.txt && [ "$tier" = quick ]; then
-    # the flagged harnesses may belong to the thorough tier only (larger bounds, slow ones)
-    (cd $V && VERIF_ONLY="$hits" python3 check.py $pid --tier thorough > $out/check_${pid}_thorough.txt 2>$out/check_${pid}_thorough.err; echo "exit=$? (tier thorough, restricted to the harnesses the native sweep flagged: $hits)" >> $out/check_${pid}_thorough.txt)
-    if grep -q "^VIOLATION" $out/check_${pid}_thorough.txt; then cp $out/check_${pid}_thorough.txt $out/check_$pid.txt; fi
-  fi
-fi
-if [ -z "$hits" ] || { ! grep -q "^VIOLATION" $out/check_$pid.txt && grep -q "no obligation was generated" $out/check_$pid.txt; }; then
-  (cd $V && python3 check.py $pid --tier $tier > $out/check_$pid.txt 2>$out/check_$pid.err; echo "exit=$? (tier $tier, full check; native sweep flagged nothing the restricted runs could decide)" >> $out/check_$pid.txt)
-fi
-iif [ -n "$hits" ]; then
-  (cd $V && VERIF_ONLY="$hits" python3 check.py $pid --tier $tier > $out/check_$pid.txt 2>$out/check_$pid.err; echo "exit=$? (tier $tier, restricted to the harnesses the native sweep flagged: $hits)" >> $out/check_$pid.txt)
-  if ! grep -q "^VIOLATION" $out/check_$pid.txt && [ "$tier" = quick ]; then
-    # the flagged harnesses may belong to the thorough tier only (larger bounds, slow ones)
-    (cd $V && VERIF_ONLY="$hits" python3 check.py $pid --tier thorough > $out/check_${pid}_thorough.txt 2>$out/check_${pid}_thorough.err; echo "exit=$? (tier thorough, restricted to the harnesses the native sweep flagged: $hits)" >> $out/check_${pid}_thorough.txt)
-    if grep -q "^VIOLATION" $out/check_${pid}_thorough.txt; then cp $out/check_${pid}_thorough.txt $out/check_$pid.txt; fi
-  fi
-fi
-if [ -z "$hits" ] || { ! grep -q "^VIOLATION" $out/check_$pid.txt && grep -q "no obligation was generated" $out/check_$pid.txt; }; then
-  (cd $V && python3 check.py $pid --tier $tier > $out/check_$pid.txt 2>$out/check_$pid.err; echo "exit=$? (tier $tier, full check; native sweep flagged nothing the restricted runs could decide)" >> $out/check_$pid.txt)
-fi
-dif [ -n "$hits" ]; then
-  (cd $V && VERIF_ONLY="$hits" python3 check.py $pid --tier $tier > $out/check_$pid.txt 2>$out/check_$pid.err; echo "exit=$? (tier $tier, restricted to the harnesses the native sweep flagged: $hits)" >> $out/check_$pid.txt)
-  if ! grep -q "^VIOLATION" $out/check_$pid.txt && [ "$tier" = quick ]; then
-    # the flagged harnesses may belong to the thorough tier only (larger bounds, slow ones)
-    (cd $V && VERIF_ONLY="$hits" python3 check.py $pid --tier thorough > $out/check_${pid}_thorough.txt 2>$out/check_${pid}_thorough.err; echo "exit=$? (tier thorough, restricted to the harnesses the native sweep flagged: $hits)" >> $out/check_${pid}_thorough.txt)
-    if grep -q "^VIOLATION" $out/check_${pid}_thorough.txt; then cp $out/check_${pid}_thorough.txt $out/check_$pid.txt; fi
-  fi
-fi
-if [ -z "$hits" ] || { ! grep -q "^VIOLATION" $out/check_$pid.txt && grep -q "no obligation was generated" $out/check_$pid.txt; }; then
-  (cd $V && python3 check.py $pid --tier $tier > $out/check_$pid.txt 2>$out/check_$pid.err; echo "exit=$? (tier $tier, full check; native sweep flagged nothing the restricted runs could decide)" >> $out/check_$pid.txt)
-fi
-.if [ -n "$hits" ]; then
-  (cd $V && VERIF_ONLY="$hits" python3 check.py $pid --tier $tier > $out/check_$pid.txt 2>$out/check_$pid.err; echo "exit=$? (tier $tier, restricted to the harnesses the native sweep flagged: $hits)" >> $out/check_$pid.txt)
-  if ! grep -q "^VIOLATION" $out/check_$pid.txt && [ "$tier" = quick ]; then
-    # the flagged harnesses may belong to the thorough tier only (larger bounds, slow ones)
-    (cd $V && VERIF_ONLY="$hits" python3 check.py $pid --tier thorough > $out/check_${pid}_thorough.txt 2>$out/check_${pid}_thorough.err; echo "exit=$? (tier thorough, restricted to the harnesses the native sweep flagged: $hits)" >> $out/check_${pid}_thorough.txt)
-    if grep -q "^VIOLATION" $out/check_${pid}_thorough.txt; then cp $out/check_${pid}_thorough.txt $out/check_$pid.txt; fi
-  fi
-fi
-if [ -z "$hits" ] || { ! grep -q "^VIOLATION" $out/check_$pid.txt && grep -q "no obligation was generated" $out/check_$pid.txt; }; then
-  (cd $V && python3 check.py $pid --tier $tier > $out/check_$pid.txt 2>$out/check_$pid.err; echo "exit=$? (tier $tier, full check; native sweep flagged nothing the restricted runs could decide)" >> $out/check_$pid.txt)
-fi
-tif [ -n "$hits" ]; then
-  (cd $V && VERIF_ONLY="$hits" python3 check.py $pid --tier $tier > $out/check_$pid.txt 2>$out/check_$pid.err; echo "exit=$? (tier $tier, restricted to the harnesses the native sweep flagged: $hits)" >> $out/check_$pid.txt)
-  if ! grep -q "^VIOLATION" $out/check_$pid.txt && [ "$tier" = quick ]; then
-    # the flagged harnesses may belong to the thorough tier only (larger bounds, slow ones)
-    (cd $V && VERIF_ONLY="$hits" python3 check.py $pid --tier thorough > $out/check_${pid}_thorough.txt 2>$out/check_${pid}_thorough.err; echo "exit=$? (tier thorough, restricted to the harnesses the native sweep flagged: $hits)" >> $out/check_${pid}_thorough.txt)
-    if grep -q "^VIOLATION" $out/check_${pid}_thorough.txt; then cp $out/check_${pid}_thorough.txt $out/check_$pid.txt; fi
-  fi
-fi
-if [ -z "$hits" ] || { ! grep -q "^VIOLATION" $out/check_$pid.txt && grep -q "no obligation was generated" $out/check_$pid.txt; }; then
-  (cd $V && python3 check.py $pid --tier $tier > $out/check_$pid.txt 2>$out/check_$pid.err; echo "exit=$? (tier $tier, full check; native sweep flagged nothing the restricted runs could decide)" >> $out/check_$pid.txt)
-fi
-xif [ -n "$hits" ]; then
-  (cd $V && VERIF_ONLY="$hits" python3 check.py $pid --tier $tier > $out/check_$pid.txt 2>$out/check_$pid.err; echo "exit=$? (tier $tier, restricted to the harnesses the native sweep flagged: $hits)" >> $out/check_$pid.txt)
-  if ! grep -q "^VIOLATION" $out/check_$pid.txt && [ "$tier" = quick ]; then
-    # the flagged harnesses may belong to the thorough tier only (larger bounds, slow ones)
-    (cd $V && VERIF_ONLY="$hits" python3 check.py $pid --tier thorough > $out/check_${pid}_thorough.txt 2>$out/check_${pid}_thorough.err; echo "exit=$? (tier thorough, restricted to the harnesses the native sweep flagged: $hits)" >> $out/check_${pid}_thorough.txt)
-    if grep -q "^VIOLATION" $out/check_${pid}_thorough.txt; then cp $out/check_${pid}_thorough.txt $out/check_$pid.txt; fi
-  fi
-fi
-if [ -z "$hits" ] || { ! grep -q "^VIOLATION" $out/check_$pid.txt && grep -q "no obligation was generated" $out/check_$pid.txt; }; then
-  (cd $V && python3 check.py $pid --tier $tier > $out/check_$pid.txt 2>$out/check_$pid.err; echo "exit=$? (tier $tier, full check; native sweep flagged nothing the restricted runs could decide)" >> $out/check_$pid.txt)
-fi
-tif [ -n "$hits" ]; then
-  (cd $V && VERIF_ONLY="$hits" python3 check.py $pid --tier $tier > $out/check_$pid.txt 2>$out/check_$pid.err; echo "exit=$? (tier $tier, restricted to the harnesses the native sweep flagged: $hits)" >> $out/check_$pid.txt)
-  if ! grep -q "^VIOLATION" $out/check_$pid.txt && [ "$tier" = quick ]; then
-    # the flagged harnesses may belong to the thorough tier only (larger bounds, slow ones)
-    (cd $V && VERIF_ONLY="$hits" python3 check.py $pid --tier thorough > $out/check_${pid}_thorough.txt 2>$out/check_${pid}_thorough.err; echo "exit=$? (tier thorough, restricted to the harnesses the native sweep flagged: $hits)" >> $out/check_${pid}_thorough.txt)
-    if grep -q "^VIOLATION" $out/check_${pid}_thorough.txt; then cp $out/check_${pid}_thorough.txt $out/check_$pid.txt; fi
-  fi
-fi
-if [ -z "$hits" ] || { ! grep -q "^VIOLATION" $out/check_$pid.txt && grep -q "no obligation was generated" $out/check_$pid.txt; }; then
-  (cd $V && python3 check.py $pid --tier $tier > $out/check_$pid.txt 2>$out/check_$pid.err; echo "exit=$? (tier $tier, full check; native sweep flagged nothing the restricted runs could decide)" >> $out/check_$pid.txt)
-fi
-;if [ -n "$hits" ]; then
-  (cd $V && VERIF_ONLY="$hits" python3 check.py $pid --tier $tier > $out/check_$pid.txt 2>$out/check_$pid.err; echo "exit=$? (tier $tier, restricted to the harnesses the native sweep flagged: $hits)" >> $out/check_$pid.txt)
-  if ! grep -q "^VIOLATION" $out/check_$pid.txt && [ "$tier" = quick ]; then
-    # the flagged harnesses may belong to the thorough tier only (larger bounds, slow ones)
-    (cd $V && VERIF_ONLY="$hits" python3 check.py $pid --tier thorough > $out/check_${pid}_thorough.txt 2>$out/check_${pid}_thorough.err; echo "exit=$? (tier thorough, restricted to the harnesses the native sweep flagged: $hits)" >> $out/check_${pid}_thorough.txt)
-    if grep -q "^VIOLATION" $out/check_${pid}_thorough.txt; then cp $out/check_${pid}_thorough.txt $out/check_$pid.txt; fi
-  fi
-fi
-if [ -z "$hits" ] || { ! grep -q "^VIOLATION" $out/check_$pid.txt && grep -q "no obligation was generated" $out/check_$pid.txt; }; then
-  (cd $V && python3 check.py $pid --tier $tier > $out/check_$pid.txt 2>$out/check_$pid.err; echo "exit=$? (tier $tier, full check; native sweep flagged nothing the restricted runs could decide)" >> $out/check_$pid.txt)
-fi
- if [ -n "$hits" ]; then
-  (cd $V && VERIF_ONLY="$hits" python3 check.py $pid --tier $tier > $out/check_$pid.txt 2>$out/check_$pid.err; echo "exit=$? (tier $tier, restricted to the harnesses the native sweep flagged: $hits)" >> $out/check_$pid.txt)
-  if ! grep -q "^VIOLATION" $out/check_$pid.txt && [ "$tier" = quick ]; then
-    # the flagged harnesses may belong to the thorough tier only (larger bounds, slow ones)
-    (cd $V && VERIF_ONLY="$hits" python3 check.py $pid --tier thorough > $out/check_${pid}_thorough.txt 2>$out/check_${pid}_thorough.err; echo "exit=$? (tier thorough, restricted to the harnesses the native sweep flagged: $hits)" >> $out/check_${pid}_thorough.txt)
-    if grep -q "^VIOLATION" $out/check_${pid}_thorough.txt; then cp $out/check_${pid}_thorough.txt $out/check_$pid.txt; fi
-  fi
-fi
-if [ -z "$hits" ] || { ! grep -q "^VIOLATION" $out/check_$pid.txt && grep -q "no obligation was generated" $out/check_$pid.txt; }; then
-  (cd $V && python3 check.py $pid --tier $tier > $out/check_$pid.txt 2>$out/check_$pid.err; echo "exit=$? (tier $tier, full check; native sweep flagged nothing the restricted runs could decide)" >> $out/check_$pid.txt)
-fi
-tif [ -n "$hits" ]; then
-  (cd $V && VERIF_ONLY="$hits" python3 check.py $pid --tier $tier > $out/check_$pid.txt 2>$out/check_$pid.err; echo "exit=$? (tier $tier, restricted to the harnesses the native sweep flagged: $hits)" >> $out/check_$pid.txt)
-  if ! grep -q "^VIOLATION" $out/check_$pid.txt && [ "$tier" = quick ]; then
-    # the flagged harnesses may belong to the thorough tier only (larger bounds, slow ones)
-    (cd $V && VERIF_ONLY="$hits" python3 check.py $pid --tier thorough > $out/check_${pid}_thorough.txt 2>$out/check_${pid}_thorough.err; echo "exit=$? (tier thorough, restricted to the harnesses the native sweep flagged: $hits)" >> $out/check_${pid}_thorough.txt)
-    if grep -q "^VIOLATION" $out/check_${pid}_thorough.txt; then cp $out/check_${pid}_thorough.txt $out/check_$pid.txt; fi
-  fi
-fi
-if [ -z "$hits" ] || { ! grep -q "^VIOLATION" $out/check_$pid.txt && grep -q "no obligation was generated" $out/check_$pid.txt; }; then
-  (cd $V && python3 check.py $pid --tier $tier > $out/check_$pid.txt 2>$out/check_$pid.err; echo "exit=$? (tier $tier, full check; native sweep flagged nothing the restricted runs could decide)" >> $out/check_$pid.txt)
-fi
-hif [ -n "$hits" ]; then
-  (cd $V && VERIF_ONLY="$hits" python3 check.py $pid --tier $tier > $out/check_$pid.txt 2>$out/check_$pid.err; echo "exit=$? (tier $tier, restricted to the harnesses the native sweep flagged: $hits)" >> $out/check_$pid.txt)
-  if ! grep -q "^VIOLATION" $out/check_$pid.txt && [ "$tier" = quick ]; then
-    # the flagged harnesses may belong to the thorough tier only (larger bounds, slow ones)
-    (cd $V && VERIF_ONLY="$hits" python3 check.py $pid --tier thorough > $out/check_${pid}_thorough.txt 2>$out/check_${pid}_thorough.err; echo "exit=$? (tier thorough, restricted to the harnesses the native sweep flagged: $hits)" >> $out/check_${pid}_thorough.txt)
-    if grep -q "^VIOLATION" $out/check_${pid}_thorough.txt; then cp $out/check_${pid}_thorough.txt $out/check_$pid.txt; fi
-  fi
-fi
-if [ -z "$hits" ] || { ! grep -q "^VIOLATION" $out/check_$pid.txt && grep -q "no obligation was generated" $out/check_$pid.txt; }; then
-  (cd $V && python3 check.py $pid --tier $tier > $out/check_$pid.txt 2>$out/check_$pid.err; echo "exit=$? (tier $tier, full check; native sweep flagged nothing the restricted runs could decide)" >> $out/check_$pid.txt)
-fi
-eif [ -n "$hits" ]; then
-  (cd $V && VERIF_ONLY="$hits" python3 check.py $pid --tier $tier > $out/check_$pid.txt 2>$out/check_$pid.err; echo "exit=$? (tier $tier, restricted to the harnesses the native sweep flagged: $hits)" >> $out/check_$pid.txt)
-  if ! grep -q "^VIOLATION" $out/check_$pid.txt && [ "$tier" = quick ]; then
-    # the flagged harnesses may belong to the thorough tier only (larger bounds, slow ones)
-    (cd $V && VERIF_ONLY="$hits" python3 check.py $pid --tier thorough > $out/check_${pid}_thorough.txt 2>$out/check_${pid}_thorough.err; echo "exit=$? (tier thorough, restricted to the harnesses the native sweep flagged: $hits)" >> $out/check_${pid}_thorough.txt)
-    if grep -q "^VIOLATION" $out/check_${pid}_thorough.txt; then cp $out/check_${pid}_thorough.txt $out/check_$pid.txt; fi
-  fi
-fi
-if [ -z "$hits" ] || { ! grep -q "^VIOLATION" $out/check_$pid.txt && grep -q "no obligation was generated" $out/check_$pid.txt; }; then
-  (cd $V && python3 check.py $pid --tier $tier > $out/check_$pid.txt 2>$out/check_$pid.err; echo "exit=$? (tier $tier, full check; native sweep flagged nothing the restricted runs could decide)" >> $out/check_$pid.txt)
-fi
-nif [ -n "$hits" ]; then
-  (cd $V && VERIF_ONLY="$hits" python3 check.py $pid --tier $tier > $out/check_$pid.txt 2>$out/check_$pid.err; echo "exit=$? (tier $tier, restricted to the harnesses the native sweep flagged: $hits)" >> $out/check_$pid.txt)
-  if ! grep -q "^VIOLATION" $out/check_$pid.txt && [ "$tier" = quick ]; then
-    # the flagged harnesses may belong to the thorough tier only (larger bounds, slow ones)
-    (cd $V && VERIF_ONLY="$hits" python3 check.py $pid --tier thorough > $out/check_${pid}_thorough.txt 2>$out/check_${pid}_thorough.err; echo "exit=$? (tier thorough, restricted to the harnesses the native sweep flagged: $hits)" >> $out/check_${pid}_thorough.txt)
-    if grep -q "^VIOLATION" $out/check_${pid}_thorough.txt; then cp $out/check_${pid}_thorough.txt $out/check_$pid.txt; fi
-  fi
-fi
-if [ -z "$hits" ] || { ! grep -q "^VIOLATION" $out/check_$pid.txt && grep -q "no obligation was generated" $out/check_$pid.txt; }; then
-  (cd $V && python3 check.py $pid --tier $tier > $out/check_$pid.txt 2>$out/check_$pid.err; echo "exit=$? (tier $tier, full check; native sweep flagged nothing the restricted runs could decide)" >> $out/check_$pid.txt)
-fi
-
-if [ -n "$hits" ]; then
-  (cd $V && VERIF_ONLY="$hits" python3 check.py $pid --tier $tier > $out/check_$pid.txt 2>$out/check_$pid.err; echo "exit=$? (tier $tier, restricted to the harnesses the native sweep flagged: $hits)" >> $out/check_$pid.txt)
-  if ! grep -q "^VIOLATION" $out/check_$pid.txt && [ "$tier" = quick ]; then
-    # the flagged harnesses may belong to the thorough tier only (larger bounds, slow ones)
-    (cd $V && VERIF_ONLY="$hits" python3 check.py $pid --tier thorough > $out/check_${pid}_thorough.txt 2>$out/check_${pid}_thorough.err; echo "exit=$? (tier thorough, restricted to the harnesses the native sweep flagged: $hits)" >> $out/check_${pid}_thorough.txt)
-    if grep -q "^VIOLATION" $out/check_${pid}_thorough.txt; then cp $out/check_${pid}_thorough.txt $out/check_$pid.txt; fi
-  fi
-fi
-if [ -z "$hits" ] || { ! grep -q "^VIOLATION" $out/check_$pid.txt && grep -q "no obligation was generated" $out/check_$pid.txt; }; then
-  (cd $V && python3 check.py $pid --tier $tier > $out/check_$pid.txt 2>$out/check_$pid.err; echo "exit=$? (tier $tier, full check; native sweep flagged nothing the restricted runs could decide)" >> $out/check_$pid.txt)
-fi
- if [ -n "$hits" ]; then
-  (cd $V && VERIF_ONLY="$hits" python3 check.py $pid --tier $tier > $out/check_$pid.txt 2>$out/check_$pid.err; echo "exit=$? (tier $tier, restricted to the harnesses the native sweep flagged: $hits)" >> $out/check_$pid.txt)
-  if ! grep -q "^VIOLATION" $out/check_$pid.txt && [ "$tier" = quick ]; then
-    # the flagged harnesses may belong to the thorough tier only (larger bounds, slow ones)
-    (cd $V && VERIF_ONLY="$hits" python3 check.py $pid --tier thorough > $out/check_${pid}_thorough.txt 2>$out/check_${pid}_thorough.err; echo "exit=$? (tier thorough, restricted to the harnesses the native sweep flagged: $hits)" >> $out/check_${pid}_thorough.txt)
-    if grep -q "^VIOLATION" $out/check_${pid}_thorough.txt; then cp $out/check_${pid}_thorough.txt $out/check_$pid.txt; fi
-  fi
-fi
-if [ -z "$hits" ] || { ! grep -q "^VIOLATION" $out/check_$pid.txt && grep -q "no obligation was generated" $out/check_$pid.txt; }; then
-  (cd $V && python3 check.py $pid --tier $tier > $out/check_$pid.txt 2>$out/check_$pid.err; echo "exit=$? (tier $tier, full check; native sweep flagged nothing the restricted runs could decide)" >> $out/check_$pid.txt)
-fi
- if [ -n "$hits" ]; then
-  (cd $V && VERIF_ONLY="$hits" python3 check.py $pid --tier $tier > $out/check_$pid.txt 2>$out/check_$pid.err; echo "exit=$? (tier $tier, restricted to the harnesses the native sweep flagged: $hits)" >> $out/check_$pid.txt)
-  if ! grep -q "^VIOLATION" $out/check_$pid.txt && [ "$tier" = quick ]; then
-    # the flagged harnesses may belong to the thorough tier only (larger bounds, slow ones)
-    (cd $V && VERIF_ONLY="$hits" python3 check.py $pid --tier thorough > $out/check_${pid}_thorough.txt 2>$out/check_${pid}_thorough.err; echo "exit=$? (tier thorough, restricted to the harnesses the native sweep flagged: $hits)" >> $out/check_${pid}_thorough.txt)
-    if grep -q "^VIOLATION" $out/check_${pid}_thorough.txt; then cp $out/check_${pid}_thorough.txt $out/check_$pid.txt; fi
-  fi
-fi
-if [ -z "$hits" ] || { ! grep -q "^VIOLATION" $out/check_$pid.txt && grep -q "no obligation was generated" $out/check_$pid.txt; }; then
-  (cd $V && python3 check.py $pid --tier $tier > $out/check_$pid.txt 2>$out/check_$pid.err; echo "exit=$? (tier $tier, full check; native sweep flagged nothing the restricted runs could decide)" >> $out/check_$pid.txt)
-fi
-(if [ -n "$hits" ]; then
-  (cd $V && VERIF_ONLY="$hits" python3 check.py $pid --tier $tier > $out/check_$pid.txt 2>$out/check_$pid.err; echo "exit=$? (tier $tier, restricted to the harnesses the native sweep flagged: $hits)" >> $out/check_$pid.txt)
-  if ! grep -q "^VIOLATION" $out/check_$pid.txt && [ "$tier" = quick ]; then
-    # the flagged harnesses may belong to the thorough tier only (larger bounds, slow ones)
-    (cd $V && VERIF_ONLY="$hits" python3 check.py $pid --tier thorough > $out/check_${pid}_thorough.txt 2>$out/check_${pid}_thorough.err; echo "exit=$? (tier thorough, restricted to the harnesses the native sweep flagged: $hits)" >> $out/check_${pid}_thorough.txt)
-    if grep -q "^VIOLATION" $out/check_${pid}_thorough.txt; then cp $out/check_${pid}_thorough.txt $out/check_$pid.txt; fi
-  fi
-fi
-if [ -z "$hits" ] || { ! grep -q "^VIOLATION" $out/check_$pid.txt && grep -q "no obligation was generated" $out/check_$pid.txt; }; then
-  (cd $V && python3 check.py $pid --tier $tier > $out/check_$pid.txt 2>$out/check_$pid.err; echo "exit=$? (tier $tier, full check; native sweep flagged nothing the restricted runs could decide)" >> $out/check_$pid.txt)
-fi
-cif [ -n "$hits" ]; then
-  (cd $V && VERIF_ONLY="$hits" python3 check.py $pid --tier $tier > $out/check_$pid.txt 2>$out/check_$pid.err; echo "exit=$? (tier $tier, restricted to the harnesses the native sweep flagged: $hits)" >> $out/check_$pid.txt)
-  if ! grep -q "^VIOLATION" $out/check_$pid.txt && [ "$tier" = quick ]; then
-    # the flagged harnesses may belong to the thorough tier only (larger bounds, slow ones)
-    (cd $V && VERIF_ONLY="$hits" python3 check.py $pid --tier thorough > $out/check_${pid}_thorough.txt 2>$out/check_${pid}_thorough.err; echo "exit=$? (tier thorough, restricted to the harnesses the native sweep flagged: $hits)" >> $out/check_${pid}_thorough.txt)
-    if grep -q "^VIOLATION" $out/check_${pid}_thorough.txt; then cp $out/check_${pid}_thorough.txt $out/check_$pid.txt; fi
-  fi
-fi
-if [ -z "$hits" ] || { ! grep -q "^VIOLATION" $out/check_$pid.txt && grep -q "no obligation was generated" $out/check_$pid.txt; }; then
-  (cd $V && python3 check.py $pid --tier $tier > $out/check_$pid.txt 2>$out/check_$pid.err; echo "exit=$? (tier $tier, full check; native sweep flagged nothing the restricted runs could decide)" >> $out/check_$pid.txt)
-fi
-dif [ -n "$hits" ]; then
-  (cd $V && VERIF_ONLY="$hits" python3 check.py $pid --tier $tier > $out/check_$pid.txt 2>$out/check_$pid.err; echo "exit=$? (tier $tier, restricted to the harnesses the native sweep flagged: $hits)" >> $out/check_$pid.txt)
-  if ! grep -q "^VIOLATION" $out/check_$pid.txt && [ "$tier" = quick ]; then
-    # the flagged harnesses may belong to the thorough tier only (larger bounds, slow ones)
-    (cd $V && VERIF_ONLY="$hits" python3 check.py $pid --tier thorough > $out/check_${pid}_thorough.txt 2>$out/check_${pid}_thorough.err; echo "exit=$? (tier thorough, restricted to the harnesses the native sweep flagged: $hits)" >> $out/check_${pid}_thorough.txt)
-    if grep -q "^VIOLATION" $out/check_${pid}_thorough.txt; then cp $out/check_${pid}_thorough.txt $out/check_$pid.txt; fi
-  fi
-fi
-if [ -z "$hits" ] || { ! grep -q "^VIOLATION" $out/check_$pid.txt && grep -q "no obligation was generated" $out/check_$pid.txt; }; then
-  (cd $V && python3 check.py $pid --tier $tier > $out/check_$pid.txt 2>$out/check_$pid.err; echo "exit=$? (tier $tier, full check; native sweep flagged nothing the restricted runs could decide)" >> $out/check_$pid.txt)
-fi
- if [ -n "$hits" ]; then
-  (cd $V && VERIF_ONLY="$hits" python3 check.py $pid --tier $tier > $out/check_$pid.txt 2>$out/check_$pid.err; echo "exit=$? (tier $tier, restricted to the harnesses the native sweep flagged: $hits)" >> $out/check_$pid.txt)
-  if ! grep -q "^VIOLATION" $out/check_$pid.txt && [ "$tier" = quick ]; then
-    # the flagged harnesses may belong to the thorough tier only (larger bounds, slow ones)
-    (cd $V && VERIF_ONLY="$hits" python3 check.py $pid --tier thorough > $out/check_${pid}_thorough.txt 2>$out/check_${pid}_thorough.err; echo "exit=$? (tier thorough, restricted to the harnesses the native sweep flagged: $hits)" >> $out/check_${pid}_thorough.txt)
-    if grep -q "^VIOLATION" $out/check_${pid}_thorough.txt; then cp $out/check_${pid}_thorough.txt $out/check_$pid.txt; fi
-  fi
-fi
-if [ -z "$hits" ] || { ! grep -q "^VIOLATION" $out/check_$pid.txt && grep -q "no obligation was generated" $out/check_$pid.txt; }; then
-  (cd $V && python3 check.py $pid --tier $tier > $out/check_$pid.txt 2>$out/check_$pid.err; echo "exit=$? (tier $tier, full check; native sweep flagged nothing the restricted runs could decide)" >> $out/check_$pid.txt)
-fi
-$if [ -n "$hits" ]; then
-  (cd $V && VERIF_ONLY="$hits" python3 check.py $pid --tier $tier > $out/check_$pid.txt 2>$out/check_$pid.err; echo "exit=$? (tier $tier, restricted to the harnesses the native sweep flagged: $hits)" >> $out/check_$pid.txt)
-  if ! grep -q "^VIOLATION" $out/check_$pid.txt && [ "$tier" = quick ]; then
-    # the flagged harnesses may belong to the thorough tier only (larger bounds, slow ones)
-    (cd $V && VERIF_ONLY="$hits" python3 check.py $pid --tier thorough > $out/check_${pid}_thorough.txt 2>$out/check_${pid}_thorough.err; echo "exit=$? (tier thorough, restricted to the harnesses the native sweep flagged: $hits)" >> $out/check_${pid}_thorough.txt)
-    if grep -q "^VIOLATION" $out/check_${pid}_thorough.txt; then cp $out/check_${pid}_thorough.txt $out/check_$pid.txt; fi
-  fi
-fi
-if [ -z "$hits" ] || { ! grep -q "^VIOLATION" $out/check_$pid.txt && grep -q "no obligation was generated" $out/check_$pid.txt; }; then
-  (cd $V && python3 check.py $pid --tier $tier > $out/check_$pid.txt 2>$out/check_$pid.err; echo "exit=$? (tier $tier, full check; native sweep flagged nothing the restricted runs could decide)" >> $out/check_$pid.txt)
-fi
-Vif [ -n "$hits" ]; then
-  (cd $V && VERIF_ONLY="$hits" python3 check.py $pid --tier $tier > $out/check_$pid.txt 2>$out/check_$pid.err; echo "exit=$? (tier $tier, restricted to the harnesses the native sweep flagged: $hits)" >> $out/check_$pid.txt)
-  if ! grep -q "^VIOLATION" $out/check_$pid.txt && [ "$tier" = quick ]; then
-    # the flagged harnesses may belong to the thorough tier only (larger bounds, slow ones)
-    (cd $V && VERIF_ONLY="$hits" python3 check.py $pid --tier thorough > $out/check_${pid}_thorough.txt 2>$out/check_${pid}_thorough.err; echo "exit=$? (tier thorough, restricted to the harnesses the native sweep flagged: $hits)" >> $out/check_${pid}_thorough.txt)
-    if grep -q "^VIOLATION" $out/check_${pid}_thorough.txt; then cp $out/check_${pid}_thorough.txt $out/check_$pid.txt; fi
-  fi
-fi
-if [ -z "$hits" ] || { ! grep -q "^VIOLATION" $out/check_$pid.txt && grep -q "no obligation was generated" $out/check_$pid.txt; }; then
-  (cd $V && python3 check.py $pid --tier $tier > $out/check_$pid.txt 2>$out/check_$pid.err; echo "exit=$? (tier $tier, full check; native sweep flagged nothing the restricted runs could decide)" >> $out/check_$pid.txt)
-fi
- if [ -n "$hits" ]; then
-  (cd $V && VERIF_ONLY="$hits" python3 check.py $pid --tier $tier > $out/check_$pid.txt 2>$out/check_$pid.err; echo "exit=$? (tier $tier, restricted to the harnesses the native sweep flagged: $hits)" >> $out/check_$pid.txt)
-  if ! grep -q "^VIOLATION" $out/check_$pid.txt && [ "$tier" = quick ]; then
-    # the flagged harnesses may belong to the thorough tier only (larger bounds, slow ones)
-    (cd $V && VERIF_ONLY="$hits" python3 check.py $pid --tier thorough > $out/check_${pid}_thorough.txt 2>$out/check_${pid}_thorough.err; echo "exit=$? (tier thorough, restricted to the harnesses the native sweep flagged: $hits)" >> $out/check_${pid}_thorough.txt)
-    if grep -q "^VIOLATION" $out/check_${pid}_thorough.txt; then cp $out/check_${pid}_thorough.txt $out/check_$pid.txt; fi
-  fi
-fi
-if [ -z "$hits" ] || { ! grep -q "^VIOLATION" $out/check_$pid.txt && grep -q "no obligation was generated" $out/check_$pid.txt; }; then
-  (cd $V && python3 check.py $pid --tier $tier > $out/check_$pid.txt 2>$out/check_$pid.err; echo "exit=$? (tier $tier, full check; native sweep flagged nothing the restricted runs could decide)" >> $out/check_$pid.txt)
-fi
-&if [ -n "$hits" ]; then
-  (cd $V && VERIF_ONLY="$hits" python3 check.py $pid --tier $tier > $out/check_$pid.txt 2>$out/check_$pid.err; echo "exit=$? (tier $tier, restricted to the harnesses the native sweep flagged: $hits)" >> $out/check_$pid.txt)
-  if ! grep -q "^VIOLATION" $out/check_$pid.txt && [ "$tier" = quick ]; then
-    # the flagged harnesses may belong to the thorough tier only (larger bounds, slow ones)
-    (cd $V && VERIF_ONLY="$hits" python3 check.py $pid --tier thorough > $out/check_${pid}_thorough.txt 2>$out/check_${pid}_thorough.err; echo "exit=$? (tier thorough, restricted to the harnesses the native sweep flagged: $hits)" >> $out/check_${pid}_thorough.txt)
-    if grep -q "^VIOLATION" $out/check_${pid}_thorough.txt; then cp $out/check_${pid}_thorough.txt $out/check_$pid.txt; fi
-  fi
-fi
-if [ -z "$hits" ] || { ! grep -q "^VIOLATION" $out/check_$pid.txt && grep -q "no obligation was generated" $out/check_$pid.txt; }; then
-  (cd $V && python3 check.py $pid --tier $tier > $out/check_$pid.txt 2>$out/check_$pid.err; echo "exit=$? (tier $tier, full check; native sweep flagged nothing the restricted runs could decide)" >> $out/check_$pid.txt)
-fi
-&if [ -n "$hits" ]; then
-  (cd $V && VERIF_ONLY="$hits" python3 check.py $pid --tier $tier > $out/check_$pid.txt 2>$out/check_$pid.err; echo "exit=$? (tier $tier, restricted to the harnesses the native sweep flagged: $hits)" >> $out/check_$pid.txt)
-  if ! grep -q "^VIOLATION" $out/check_$pid.txt && [ "$tier" = quick ]; then
-    # the flagged harnesses may belong to the thorough tier only (larger bounds, slow ones)
-    (cd $V && VERIF_ONLY="$hits" python3 check.py $pid --tier thorough > $out/check_${pid}_thorough.txt 2>$out/check_${pid}_thorough.err; echo "exit=$? (tier thorough, restricted to the harnesses the native sweep flagged: $hits)" >> $out/check_${pid}_thorough.txt)
-    if grep -q "^VIOLATION" $out/check_${pid}_thorough.txt; then cp $out/check_${pid}_thorough.txt $out/check_$pid.txt; fi
-  fi
-fi
-if [ -z "$hits" ] || { ! grep -q "^VIOLATION" $out/check_$pid.txt && grep -q "no obligation was generated" $out/check_$pid.txt; }; then
-  (cd $V && python3 check.py $pid --tier $tier > $out/check_$pid.txt 2>$out/check_$pid.err; echo "exit=$? (tier $tier, full check; native sweep flagged nothing the restricted runs could decide)" >> $out/check_$pid.txt)
-fi
- if [ -n "$hits" ]; then
-  (cd $V && VERIF_ONLY="$hits" python3 check.py $pid --tier $tier > $out/check_$pid.txt 2>$out/check_$pid.err; echo "exit=$? (tier $tier, restricted to the harnesses the native sweep flagged: $hits)" >> $out/check_$pid.txt)
-  if ! grep -q "^VIOLATION" $out/check_$pid.txt && [ "$tier" = quick ]; then
-    # the flagged harnesses may belong to the thorough tier only (larger bounds, slow ones)
-    (cd $V && VERIF_ONLY="$hits" python3 check.py $pid --tier thorough > $out/check_${pid}_thorough.txt 2>$out/check_${pid}_thorough.err; echo "exit=$? (tier thorough, restricted to the harnesses the native sweep flagged: $hits)" >> $out/check_${pid}_thorough.txt)
-    if grep -q "^VIOLATION" $out/check_${pid}_thorough.txt; then cp $out/check_${pid}_thorough.txt $out/check_$pid.txt; fi
-  fi
-fi
-if [ -z "$hits" ] || { ! grep -q "^VIOLATION" $out/check_$pid.txt && grep -q "no obligation was generated" $out/check_$pid.txt; }; then
-  (cd $V && python3 check.py $pid --tier $tier > $out/check_$pid.txt 2>$out/check_$pid.err; echo "exit=$? (tier $tier, full check; native sweep flagged nothing the restricted runs could decide)" >> $out/check_$pid.txt)
-fi
-pif [ -n "$hits" ]; then
-  (cd $V && VERIF_ONLY="$hits" python3 check.py $pid --tier $tier > $out/check_$pid.txt 2>$out/check_$pid.err; echo "exit=$? (tier $tier, restricted to the harnesses the native sweep flagged: $hits)" >> $out/check_$pid.txt)
-  if ! grep -q "^VIOLATION" $out/check_$pid.txt && [ "$tier" = quick ]; then
-    # the flagged harnesses may belong to the thorough tier only (larger bounds, slow ones)
-    (cd $V && VERIF_ONLY="$hits" python3 check.py $pid --tier thorough > $out/check_${pid}_thorough.txt 2>$out/check_${pid}_thorough.err; echo "exit=$? (tier thorough, restricted to the harnesses the native sweep flagged: $hits)" >> $out/check_${pid}_thorough.txt)
-    if grep -q "^VIOLATION" $out/check_${pid}_thorough.txt; then cp $out/check_${pid}_thorough.txt $out/check_$pid.txt; fi
-  fi
-fi
-if [ -z "$hits" ] || { ! grep -q "^VIOLATION" $out/check_$pid.txt && grep -q "no obligation was generated" $out/check_$pid.txt; }; then
-  (cd $V && python3 check.py $pid --tier $tier > $out/check_$pid.txt 2>$out/check_$pid.err; echo "exit=$? (tier $tier, full check; native sweep flagged nothing the restricted runs could decide)" >> $out/check_$pid.txt)
-fi
-yif [ -n "$hits" ]; then
-  (cd $V && VERIF_ONLY="$hits" python3 check.py $pid --tier $tier > $out/check_$pid.txt 2>$out/check_$pid.err; echo "exit=$? (tier $tier, restricted to the harnesses the native sweep flagged: $hits)" >> $out/check_$pid.txt)
-  if ! grep -q "^VIOLATION" $out/check_$pid.txt && [ "$tier" = quick ]; then
-    # the flagged harnesses may belong to the thorough tier only (larger bounds, slow ones)
-    (cd $V && VERIF_ONLY="$hits" python3 check.py $pid --tier thorough > $out/check_${pid}_thorough.txt 2>$out/check_${pid}_thorough.err; echo "exit=$? (tier thorough, restricted to the harnesses the native sweep flagged: $hits)" >> $out/check_${pid}_thorough.txt)
-    if grep -q "^VIOLATION" $out/check_${pid}_thorough.txt; then cp $out/check_${pid}_thorough.txt $out/check_$pid.txt; fi
-  fi
-fi
-if [ -z "$hits" ] || { ! grep -q "^VIOLATION" $out/check_$pid.txt && grep -q "no obligation was generated" $out/check_$pid.txt; }; then
-  (cd $V && python3 check.py $pid --tier $tier > $out/check_$pid.txt 2>$out/check_$pid.err; echo "exit=$? (tier $tier, full check; native sweep flagged nothing the restricted runs could decide)" >> $out/check_$pid.txt)
-fi
-tif [ -n "$hits" ]; then
-  (cd $V && VERIF_ONLY="$hits" python3 check.py $pid --tier $tier > $out/check_$pid.txt 2>$out/check_$pid.err; echo "exit=$? (tier $tier, restricted to the harnesses the native sweep flagged: $hits)" >> $out/check_$pid.txt)
-  if ! grep -q "^VIOLATION" $out/check_$pid.txt && [ "$tier" = quick ]; then
-    # the flagged harnesses may belong to the thorough tier only (larger bounds, slow ones)
-    (cd $V && VERIF_ONLY="$hits" python3 check.py $pid --tier thorough > $out/check_${pid}_thorough.txt 2>$out/check_${pid}_thorough.err; echo "exit=$? (tier thorough, restricted to the harnesses the native sweep flagged: $hits)" >> $out/check_${pid}_thorough.txt)
-    if grep -q "^VIOLATION" $out/check_${pid}_thorough.txt; then cp $out/check_${pid}_thorough.txt $out/check_$pid.txt; fi
-  fi
-fi
-if [ -z "$hits" ] || { ! grep -q "^VIOLATION" $out/check_$pid.txt && grep -q "no obligation was generated" $out/check_$pid.txt; }; then
-  (cd $V && python3 check.py $pid --tier $tier > $out/check_$pid.txt 2>$out/check_$pid.err; echo "exit=$? (tier $tier, full check; native sweep flagged nothing the restricted runs could decide)" >> $out/check_$pid.txt)
-fi
-hif [ -n "$hits" ]; then
-  (cd $V && VERIF_ONLY="$hits" python3 check.py $pid --tier $tier > $out/check_$pid.txt 2>$out/check_$pid.err; echo "exit=$? (tier $tier, restricted to the harnesses the native sweep flagged: $hits)" >> $out/check_$pid.txt)
-  if ! grep -q "^VIOLATION" $out/check_$pid.txt && [ "$tier" = quick ]; then
-    # the flagged harnesses may belong to the thorough tier only (larger bounds, slow ones)
-    (cd $V && VERIF_ONLY="$hits" python3 check.py $pid --tier thorough > $out/check_${pid}_thorough.txt 2>$out/check_${pid}_thorough.err; echo "exit=$? (tier thorough, restricted to the harnesses the native sweep flagged: $hits)" >> $out/check_${pid}_thorough.txt)
-    if grep -q "^VIOLATION" $out/check_${pid}_thorough.txt; then cp $out/check_${pid}_thorough.txt $out/check_$pid.txt; fi
-  fi
-fi
-if [ -z "$hits" ] || { ! grep -q "^VIOLATION" $out/check_$pid.txt && grep -q "no obligation was generated" $out/check_$pid.txt; }; then
-  (cd $V && python3 check.py $pid --tier $tier > $out/check_$pid.txt 2>$out/check_$pid.err; echo "exit=$? (tier $tier, full check; native sweep flagged nothing the restricted runs could decide)" >> $out/check_$pid.txt)
-fi
-oif [ -n "$hits" ]; then
-  (cd $V && VERIF_ONLY="$hits" python3 check.py $pid --tier $tier > $out/check_$pid.txt 2>$out/check_$pid.err; echo "exit=$? (tier $tier, restricted to the harnesses the native sweep flagged: $hits)" >> $out/check_$pid.txt)
-  if ! grep -q "^VIOLATION" $out/check_$pid.txt && [ "$tier" = quick ]; then
-    # the flagged harnesses may belong to the thorough tier only (larger bounds, slow ones)
-    (cd $V && VERIF_ONLY="$hits" python3 check.py $pid --tier thorough > $out/check_${pid}_thorough.txt 2>$out/check_${pid}_thorough.err; echo "exit=$? (tier thorough, restricted to the harnesses the native sweep flagged: $hits)" >> $out/check_${pid}_thorough.txt)
-    if grep -q "^VIOLATION" $out/check_${pid}_thorough.txt; then cp $out/check_${pid}_thorough.txt $out/check_$pid.txt; fi
-  fi
-fi
-if [ -z "$hits" ] || { ! grep -q "^VIOLATION" $out/check_$pid.txt && grep -q "no obligation was generated" $out/check_$pid.txt; }; then
-  (cd $V && python3 check.py $pid --tier $tier > $out/check_$pid.txt 2>$out/check_$pid.err; echo "exit=$? (tier $tier, full check; native sweep flagged nothing the restricted runs could decide)" >> $out/check_$pid.txt)
-fi
-nif [ -n "$hits" ]; then
-  (cd $V && VERIF_ONLY="$hits" python3 check.py $pid --tier $tier > $out/check_$pid.txt 2>$out/check_$pid.err; echo "exit=$? (tier $tier, restricted to the harnesses the native sweep flagged: $hits)" >> $out/check_$pid.txt)
-  if ! grep -q "^VIOLATION" $out/check_$pid.txt && [ "$tier" = quick ]; then
-    # the flagged harnesses may belong to the thorough tier only (larger bounds, slow ones)
-    (cd $V && VERIF_ONLY="$hits" python3 check.py $pid --tier thorough > $out/check_${pid}_thorough.txt 2>$out/check_${pid}_thorough.err; echo "exit=$? (tier thorough, restricted to the harnesses the native sweep flagged: $hits)" >> $out/check_${pid}_thorough.txt)
-    if grep -q "^VIOLATION" $out/check_${pid}_thorough.txt; then cp $out/check_${pid}_thorough.txt $out/check_$pid.txt; fi
-  fi
-fi
-if [ -z "$hits" ] || { ! grep -q "^VIOLATION" $out/check_$pid.txt && grep -q "no obligation was generated" $out/check_$pid.txt; }; then
-  (cd $V && python3 check.py $pid --tier $tier > $out/check_$pid.txt 2>$out/check_$pid.err; echo "exit=$? (tier $tier, full check; native sweep flagged nothing the restricted runs could decide)" >> $out/check_$pid.txt)
-fi
-3if [ -n "$hits" ]; then
-  (cd $V && VERIF_ONLY="$hits" python3 check.py $pid --tier $tier > $out/check_$pid.txt 2>$out/check_$pid.err; echo "exit=$? (tier $tier, restricted to the harnesses the native sweep flagged: $hits)" >> $out/check_$pid.txt)
-  if ! grep -q "^VIOLATION" $out/check_$pid.txt && [ "$tier" = quick ]; then
-    # the flagged harnesses may belong to the thorough tier only (larger bounds, slow ones)
-    (cd $V && VERIF_ONLY="$hits" python3 check.py $pid --tier thorough > $out/check_${pid}_thorough.txt 2>$out/check_${pid}_thorough.err; echo "exit=$? (tier thorough, restricted to the harnesses the native sweep flagged: $hits)" >> $out/check_${pid}_thorough.txt)
-    if grep -q "^VIOLATION" $out/check_${pid}_thorough.txt; then cp $out/check_${pid}_thorough.txt $out/check_$pid.txt; fi
-  fi
-fi
-if [ -z "$hits" ] || { ! grep -q "^VIOLATION" $out/check_$pid.txt && grep -q "no obligation was generated" $out/check_$pid.txt; }; then
-  (cd $V && python3 check.py $pid --tier $tier > $out/check_$pid.txt 2>$out/check_$pid.err; echo "exit=$? (tier $tier, full check; native sweep flagged nothing the restricted runs could decide)" >> $out/check_$pid.txt)
-fi
- if [ -n "$hits" ]; then
-  (cd $V && VERIF_ONLY="$hits" python3 check.py $pid --tier $tier > $out/check_$pid.txt 2>$out/check_$pid.err; echo "exit=$? (tier $tier, restricted to the harnesses the native sweep flagged: $hits)" >> $out/check_$pid.txt)
-  if ! grep -q "^VIOLATION" $out/check_$pid.txt && [ "$tier" = quick ]; then
-    # the flagged harnesses may belong to the thorough tier only (larger bounds, slow ones)
-    (cd $V && VERIF_ONLY="$hits" python3 check.py $pid --tier thorough > $out/check_${pid}_thorough.txt 2>$out/check_${pid}_thorough.err; echo "exit=$? (tier thorough, restricted to the harnesses the native sweep flagged: $hits)" >> $out/check_${pid}_thorough.txt)
-    if grep -q "^VIOLATION" $out/check_${pid}_thorough.txt; then cp $out/check_${pid}_thorough.txt $out/check_$pid.txt; fi
-  fi
-fi
-if [ -z "$hits" ] || { ! grep -q "^VIOLATION" $out/check_$pid.txt && grep -q "no obligation was generated" $out/check_$pid.txt; }; then
-  (cd $V && python3 check.py $pid --tier $tier > $out/check_$pid.txt 2>$out/check_$pid.err; echo "exit=$? (tier $tier, full check; native sweep flagged nothing the restricted runs could decide)" >> $out/check_$pid.txt)
-fi
-cif [ -n "$hits" ]; then
-  (cd $V && VERIF_ONLY="$hits" python3 check.py $pid --tier $tier > $out/check_$pid.txt 2>$out/check_$pid.err; echo "exit=$? (tier $tier, restricted to the harnesses the native sweep flagged: $hits)" >> $out/check_$pid.txt)
-  if ! grep -q "^VIOLATION" $out/check_$pid.txt && [ "$tier" = quick ]; then
-    # the flagged harnesses may belong to the thorough tier only (larger bounds, slow ones)
-    (cd $V && VERIF_ONLY="$hits" python3 check.py $pid --tier thorough > $out/check_${pid}_thorough.txt 2>$out/check_${pid}_thorough.err; echo "exit=$? (tier thorough, restricted to the harnesses the native sweep flagged: $hits)" >> $out/check_${pid}_thorough.txt)
-    if grep -q "^VIOLATION" $out/check_${pid}_thorough.txt; then cp $out/check_${pid}_thorough.txt $out/check_$pid.txt; fi
-  fi
-fi
-if [ -z "$hits" ] || { ! grep -q "^VIOLATION" $out/check_$pid.txt && grep -q "no obligation was generated" $out/check_$pid.txt; }; then
-  (cd $V && python3 check.py $pid --tier $tier > $out/check_$pid.txt 2>$out/check_$pid.err; echo "exit=$? (tier $tier, full check; native sweep flagged nothing the restricted runs could decide)" >> $out/check_$pid.txt)
-fi
-hif [ -n "$hits" ]; then
-  (cd $V && VERIF_ONLY="$hits" python3 check.py $pid --tier $tier > $out/check_$pid.txt 2>$out/check_$pid.err; echo "exit=$? (tier $tier, restricted to the harnesses the native sweep flagged: $hits)" >> $out/check_$pid.txt)
-  if ! grep -q "^VIOLATION" $out/check_$pid.txt && [ "$tier" = quick ]; then
-    # the flagged harnesses may belong to the thorough tier only (larger bounds, slow ones)
-    (cd $V && VERIF_ONLY="$hits" python3 check.py $pid --tier thorough > $out/check_${pid}_thorough.txt 2>$out/check_${pid}_thorough.err; echo "exit=$? (tier thorough, restricted to the harnesses the native sweep flagged: $hits)" >> $out/check_${pid}_thorough.txt)
-    if grep -q "^VIOLATION" $out/check_${pid}_thorough.txt; then cp $out/check_${pid}_thorough.txt $out/check_$pid.txt; fi
-  fi
-fi
-if [ -z "$hits" ] || { ! grep -q "^VIOLATION" $out/check_$pid.txt && grep -q "no obligation was generated" $out/check_$pid.txt; }; then
-  (cd $V && python3 check.py $pid --tier $tier > $out/check_$pid.txt 2>$out/check_$pid.err; echo "exit=$? (tier $tier, full check; native sweep flagged nothing the restricted runs could decide)" >> $out/check_$pid.txt)
-fi
-eif [ -n "$hits" ]; then
-  (cd $V && VERIF_ONLY="$hits" python3 check.py $pid --tier $tier > $out/check_$pid.txt 2>$out/check_$pid.err; echo "exit=$? (tier $tier, restricted to the harnesses the native sweep flagged: $hits)" >> $out/check_$pid.txt)
-  if ! grep -q "^VIOLATION" $out/check_$pid.txt && [ "$tier" = quick ]; then
-    # the flagged harnesses may belong to the thorough tier only (larger bounds, slow ones)
-    (cd $V && VERIF_ONLY="$hits" python3 check.py $pid --tier thorough > $out/check_${pid}_thorough.txt 2>$out/check_${pid}_thorough.err; echo "exit=$? (tier thorough, restricted to the harnesses the native sweep flagged: $hits)" >> $out/check_${pid}_thorough.txt)
-    if grep -q "^VIOLATION" $out/check_${pid}_thorough.txt; then cp $out/check_${pid}_thorough.txt $out/check_$pid.txt; fi
-  fi
-fi
-if [ -z "$hits" ] || { ! grep -q "^VIOLATION" $out/check_$pid.txt && grep -q "no obligation was generated" $out/check_$pid.txt; }; then
-  (cd $V && python3 check.py $pid --tier $tier > $out/check_$pid.txt 2>$out/check_$pid.err; echo "exit=$? (tier $tier, full check; native sweep flagged nothing the restricted runs could decide)" >> $out/check_$pid.txt)
-fi
-cif [ -n "$hits" ]; then
-  (cd $V && VERIF_ONLY="$hits" python3 check.py $pid --tier $tier > $out/check_$pid.txt 2>$out/check_$pid.err; echo "exit=$? (tier $tier, restricted to the harnesses the native sweep flagged: $hits)" >> $out/check_$pid.txt)
-  if ! grep -q "^VIOLATION" $out/check_$pid.txt && [ "$tier" = quick ]; then
-    # the flagged harnesses may belong to the thorough tier only (larger bounds, slow ones)
-    (cd $V && VERIF_ONLY="$hits" python3 check.py $pid --tier thorough > $out/check_${pid}_thorough.txt 2>$out/check_${pid}_thorough.err; echo "exit=$? (tier thorough, restricted to the harnesses the native sweep flagged: $hits)" >> $out/check_${pid}_thorough.txt)
-    if grep -q "^VIOLATION" $out/check_${pid}_thorough.txt; then cp $out/check_${pid}_thorough.txt $out/check_$pid.txt; fi
-  fi
-fi
-if [ -z "$hits" ] || { ! grep -q "^VIOLATION" $out/check_$pid.txt && grep -q "no obligation was generated" $out/check_$pid.txt; }; then
-  (cd $V && python3 check.py $pid --tier $tier > $out/check_$pid.txt 2>$out/check_$pid.err; echo "exit=$? (tier $tier, full check; native sweep flagged nothing the restricted runs could decide)" >> $out/check_$pid.txt)
-fi
-kif [ -n "$hits" ]; then
-  (cd $V && VERIF_ONLY="$hits" python3 check.py $pid --tier $tier > $out/check_$pid.txt 2>$out/check_$pid.err; echo "exit=$? (tier $tier, restricted to the harnesses the native sweep flagged: $hits)" >> $out/check_$pid.txt)
-  if ! grep -q "^VIOLATION" $out/check_$pid.txt && [ "$tier" = quick ]; then
-    # the flagged harnesses may belong to the thorough tier only (larger bounds, slow ones)
-    (cd $V && VERIF_ONLY="$hits" python3 check.py $pid --tier thorough > $out/check_${pid}_thorough.txt 2>$out/check_${pid}_thorough.err; echo "exit=$? (tier thorough, restricted to the harnesses the native sweep flagged: $hits)" >> $out/check_${pid}_thorough.txt)
-    if grep -q "^VIOLATION" $out/check_${pid}_thorough.txt; then cp $out/check_${pid}_thorough.txt $out/check_$pid.txt; fi
-  fi
-fi
-if [ -z "$hits" ] || { ! grep -q "^VIOLATION" $out/check_$pid.txt && grep -q "no obligation was generated" $out/check_$pid.txt; }; then
-  (cd $V && python3 check.py $pid --tier $tier > $out/check_$pid.txt 2>$out/check_$pid.err; echo "exit=$? (tier $tier, full check; native sweep flagged nothing the restricted runs could decide)" >> $out/check_$pid.txt)
-fi
-.if [ -n "$hits" ]; then
-  (cd $V && VERIF_ONLY="$hits" python3 check.py $pid --tier $tier > $out/check_$pid.txt 2>$out/check_$pid.err; echo "exit=$? (tier $tier, restricted to the harnesses the native sweep flagged: $hits)" >> $out/check_$pid.txt)
-  if ! grep -q "^VIOLATION" $out/check_$pid.txt && [ "$tier" = quick ]; then
-    # the flagged harnesses may belong to the thorough tier only (larger bounds, slow ones)
-    (cd $V && VERIF_ONLY="$hits" python3 check.py $pid --tier thorough > $out/check_${pid}_thorough.txt 2>$out/check_${pid}_thorough.err; echo "exit=$? (tier thorough, restricted to the harnesses the native sweep flagged: $hits)" >> $out/check_${pid}_thorough.txt)
-    if grep -q "^VIOLATION" $out/check_${pid}_thorough.txt; then cp $out/check_${pid}_thorough.txt $out/check_$pid.txt; fi
-  fi
-fi
-if [ -z "$hits" ] || { ! grep -q "^VIOLATION" $out/check_$pid.txt && grep -q "no obligation was generated" $out/check_$pid.txt; }; then
-  (cd $V && python3 check.py $pid --tier $tier > $out/check_$pid.txt 2>$out/check_$pid.err; echo "exit=$? (tier $tier, full check; native sweep flagged nothing the restricted runs could decide)" >> $out/check_$pid.txt)
-fi
-pif [ -n "$hits" ]; then
-  (cd $V && VERIF_ONLY="$hits" python3 check.py $pid --tier $tier > $out/check_$pid.txt 2>$out/check_$pid.err; echo "exit=$? (tier $tier, restricted to the harnesses the native sweep flagged: $hits)" >> $out/check_$pid.txt)
-  if ! grep -q "^VIOLATION" $out/check_$pid.txt && [ "$tier" = quick ]; then
-    # the flagged harnesses may belong to the thorough tier only (larger bounds, slow ones)
-    (cd $V && VERIF_ONLY="$hits" python3 check.py $pid --tier thorough > $out/check_${pid}_thorough.txt 2>$out/check_${pid}_thorough.err; echo "exit=$? (tier thorough, restricted to the harnesses the native sweep flagged: $hits)" >> $out/check_${pid}_thorough.txt)
-    if grep -q "^VIOLATION" $out/check_${pid}_thorough.txt; then cp $out/check_${pid}_thorough.txt $out/check_$pid.txt; fi
-  fi
-fi
-if [ -z "$hits" ] || { ! grep -q "^VIOLATION" $out/check_$pid.txt && grep -q "no obligation was generated" $out/check_$pid.txt; }; then
-  (cd $V && python3 check.py $pid --tier $tier > $out/check_$pid.txt 2>$out/check_$pid.err; echo "exit=$? (tier $tier, full check; native sweep flagged nothing the restricted runs could decide)" >> $out/check_$pid.txt)
-fi
-yif [ -n "$hits" ]; then
-  (cd $V && VERIF_ONLY="$hits" python3 check.py $pid --tier $tier > $out/check_$pid.txt 2>$out/check_$pid.err; echo "exit=$? (tier $tier, restricted to the harnesses the native sweep flagged: $hits)" >> $out/check_$pid.txt)
-  if ! grep -q "^VIOLATION" $out/check_$pid.txt && [ "$tier" = quick ]; then
-    # the flagged harnesses may belong to the thorough tier only (larger bounds, slow ones)
-    (cd $V && VERIF_ONLY="$hits" python3 check.py $pid --tier thorough > $out/check_${pid}_thorough.txt 2>$out/check_${pid}_thorough.err; echo "exit=$? (tier thorough, restricted to the harnesses the native sweep flagged: $hits)" >> $out/check_${pid}_thorough.txt)
-    if grep -q "^VIOLATION" $out/check_${pid}_thorough.txt; then cp $out/check_${pid}_thorough.txt $out/check_$pid.txt; fi
-  fi
-fi
-if [ -z "$hits" ] || { ! grep -q "^VIOLATION" $out/check_$pid.txt && grep -q "no obligation was generated" $out/check_$pid.txt; }; then
-  (cd $V && python3 check.py $pid --tier $tier > $out/check_$pid.txt 2>$out/check_$pid.err; echo "exit=$? (tier $tier, full check; native sweep flagged nothing the restricted runs could decide)" >> $out/check_$pid.txt)
-fi
- if [ -n "$hits" ]; then
-  (cd $V && VERIF_ONLY="$hits" python3 check.py $pid --tier $tier > $out/check_$pid.txt 2>$out/check_$pid.err; echo "exit=$? (tier $tier, restricted to the harnesses the native sweep flagged: $hits)" >> $out/check_$pid.txt)
-  if ! grep -q "^VIOLATION" $out/check_$pid.txt && [ "$tier" = quick ]; then
-    # the flagged harnesses may belong to the thorough tier only (larger bounds, slow ones)
-    (cd $V && VERIF_ONLY="$hits" python3 check.py $pid --tier thorough > $out/check_${pid}_thorough.txt 2>$out/check_${pid}_thorough.err; echo "exit=$? (tier thorough, restricted to the harnesses the native sweep flagged: $hits)" >> $out/check_${pid}_thorough.txt)
-    if grep -q "^VIOLATION" $out/check_${pid}_thorough.txt; then cp $out/check_${pid}_thorough.txt $out/check_$pid.txt; fi
-  fi
-fi
-if [ -z "$hits" ] || { ! grep -q "^VIOLATION" $out/check_$pid.txt && grep -q "no obligation was generated" $out/check_$pid.txt; }; then
-  (cd $V && python3 check.py $pid --tier $tier > $out/check_$pid.txt 2>$out/check_$pid.err; echo "exit=$? (tier $tier, full check; native sweep flagged nothing the restricted runs could decide)" >> $out/check_$pid.txt)
-fi
-$if [ -n "$hits" ]; then
-  (cd $V && VERIF_ONLY="$hits" python3 check.py $pid --tier $tier > $out/check_$pid.txt 2>$out/check_$pid.err; echo "exit=$? (tier $tier, restricted to the harnesses the native sweep flagged: $hits)" >> $out/check_$pid.txt)
-  if ! grep -q "^VIOLATION" $out/check_$pid.txt && [ "$tier" = quick ]; then
-    # the flagged harnesses may belong to the thorough tier only (larger bounds, slow ones)
-    (cd $V && VERIF_ONLY="$hits" python3 check.py $pid --tier thorough > $out/check_${pid}_thorough.txt 2>$out/check_${pid}_thorough.err; echo "exit=$? (tier thorough, restricted to the harnesses the native sweep flagged: $hits)" >> $out/check_${pid}_thorough.txt)
-    if grep -q "^VIOLATION" $out/check_${pid}_thorough.txt; then cp $out/check_${pid}_thorough.txt $out/check_$pid.txt; fi
-  fi
-fi
-if [ -z "$hits" ] || { ! grep -q "^VIOLATION" $out/check_$pid.txt && grep -q "no obligation was generated" $out/check_$pid.txt; }; then
-  (cd $V && python3 check.py $pid --tier $tier > $out/check_$pid.txt 2>$out/check_$pid.err; echo "exit=$? (tier $tier, full check; native sweep flagged nothing the restricted runs could decide)" >> $out/check_$pid.txt)
-fi
-pif [ -n "$hits" ]; then
-  (cd $V && VERIF_ONLY="$hits" python3 check.py $pid --tier $tier > $out/check_$pid.txt 2>$out/check_$pid.err; echo "exit=$? (tier $tier, restricted to the harnesses the native sweep flagged: $hits)" >> $out/check_$pid.txt)
-  if ! grep -q "^VIOLATION" $out/check_$pid.txt && [ "$tier" = quick ]; then
-    # the flagged harnesses may belong to the thorough tier only (larger bounds, slow ones)
-    (cd $V && VERIF_ONLY="$hits" python3 check.py $pid --tier thorough > $out/check_${pid}_thorough.txt 2>$out/check_${pid}_thorough.err; echo "exit=$? (tier thorough, restricted to the harnesses the native sweep flagged: $hits)" >> $out/check_${pid}_thorough.txt)
-    if grep -q "^VIOLATION" $out/check_${pid}_thorough.txt; then cp $out/check_${pid}_thorough.txt $out/check_$pid.txt; fi
-  fi
-fi
-if [ -z "$hits" ] || { ! grep -q "^VIOLATION" $out/check_$pid.txt && grep -q "no obligation was generated" $out/check_$pid.txt; }; then
-  (cd $V && python3 check.py $pid --tier $tier > $out/check_$pid.txt 2>$out/check_$pid.err; echo "exit=$? (tier $tier, full check; native sweep flagged nothing the restricted runs could decide)" >> $out/check_$pid.txt)
-fi
-iif [ -n "$hits" ]; then
-  (cd $V && VERIF_ONLY="$hits" python3 check.py $pid --tier $tier > $out/check_$pid.txt 2>$out/check_$pid.err; echo "exit=$? (tier $tier, restricted to the harnesses the native sweep flagged: $hits)" >> $out/check_$pid.txt)
-  if ! grep -q "^VIOLATION" $out/check_$pid.txt && [ "$tier" = quick ]; then
-    # the flagged harnesses may belong to the thorough tier only (larger bounds, slow ones)
-    (cd $V && VERIF_ONLY="$hits" python3 check.py $pid --tier thorough > $out/check_${pid}_thorough.txt 2>$out/check_${pid}_thorough.err; echo "exit=$? (tier thorough, restricted to the harnesses the native sweep flagged: $hits)" >> $out/check_${pid}_thorough.txt)
-    if grep -q "^VIOLATION" $out/check_${pid}_thorough.txt; then cp $out/check_${pid}_thorough.txt $out/check_$pid.txt; fi
-  fi
-fi
-if [ -z "$hits" ] || { ! grep -q "^VIOLATION" $out/check_$pid.txt && grep -q "no obligation was generated" $out/check_$pid.txt; }; then
-  (cd $V && python3 check.py $pid --tier $tier > $out/check_$pid.txt 2>$out/check_$pid.err; echo "exit=$? (tier $tier, full check; native sweep flagged nothing the restricted runs could decide)" >> $out/check_$pid.txt)
-fi
-dif [ -n "$hits" ]; then
-  (cd $V && VERIF_ONLY="$hits" python3 check.py $pid --tier $tier > $out/check_$pid.txt 2>$out/check_$pid.err; echo "exit=$? (tier $tier, restricted to the harnesses the native sweep flagged: $hits)" >> $out/check_$pid.txt)
-  if ! grep -q "^VIOLATION" $out/check_$pid.txt && [ "$tier" = quick ]; then
-    # the flagged harnesses may belong to the thorough tier only (larger bounds, slow ones)
-    (cd $V && VERIF_ONLY="$hits" python3 check.py $pid --tier thorough > $out/check_${pid}_thorough.txt 2>$out/check_${pid}_thorough.err; echo "exit=$? (tier thorough, restricted to the harnesses the native sweep flagged: $hits)" >> $out/check_${pid}_thorough.txt)
-    if grep -q "^VIOLATION" $out/check_${pid}_thorough.txt; then cp $out/check_${pid}_thorough.txt $out/check_$pid.txt; fi
-  fi
-fi
-if [ -z "$hits" ] || { ! grep -q "^VIOLATION" $out/check_$pid.txt && grep -q "no obligation was generated" $out/check_$pid.txt; }; then
-  (cd $V && python3 check.py $pid --tier $tier > $out/check_$pid.txt 2>$out/check_$pid.err; echo "exit=$? (tier $tier, full check; native sweep flagged nothing the restricted runs could decide)" >> $out/check_$pid.txt)
-fi
- if [ -n "$hits" ]; then
-  (cd $V && VERIF_ONLY="$hits" python3 check.py $pid --tier $tier > $out/check_$pid.txt 2>$out/check_$pid.err; echo "exit=$? (tier $tier, restricted to the harnesses the native sweep flagged: $hits)" >> $out/check_$pid.txt)
-  if ! grep -q "^VIOLATION" $out/check_$pid.txt && [ "$tier" = quick ]; then
-    # the flagged harnesses may belong to the thorough tier only (larger bounds, slow ones)
-    (cd $V && VERIF_ONLY="$hits" python3 check.py $pid --tier thorough > $out/check_${pid}_thorough.txt 2>$out/check_${pid}_thorough.err; echo "exit=$? (tier thorough, restricted to the harnesses the native sweep flagged: $hits)" >> $out/check_${pid}_thorough.txt)
-    if grep -q "^VIOLATION" $out/check_${pid}_thorough.txt; then cp $out/check_${pid}_thorough.txt $out/check_$pid.txt; fi
-  fi
-fi
-if [ -z "$hits" ] || { ! grep -q "^VIOLATION" $out/check_$pid.txt && grep -q "no obligation was generated" $out/check_$pid.txt; }; then
-  (cd $V && python3 check.py $pid --tier $tier > $out/check_$pid.txt 2>$out/check_$pid.err; echo "exit=$? (tier $tier, full check; native sweep flagged nothing the restricted runs could decide)" >> $out/check_$pid.txt)
-fi
--if [ -n "$hits" ]; then
-  (cd $V && VERIF_ONLY="$hits" python3 check.py $pid --tier $tier > $out/check_$pid.txt 2>$out/check_$pid.err; echo "exit=$? (tier $tier, restricted to the harnesses the native sweep flagged: $hits)" >> $out/check_$pid.txt)
-  if ! grep -q "^VIOLATION" $out/check_$pid.txt && [ "$tier" = quick ]; then
-    # the flagged harnesses may belong to the thorough tier only (larger bounds, slow ones)
-    (cd $V && VERIF_ONLY="$hits" python3 check.py $pid --tier thorough > $out/check_${pid}_thorough.txt 2>$out/check_${pid}_thorough.err; echo "exit=$? (tier thorough, restricted to the harnesses the native sweep flagged: $hits)" >> $out/check_${pid}_thorough.txt)
-    if grep -q "^VIOLATION" $out/check_${pid}_thorough.txt; then cp $out/check_${pid}_thorough.txt $out/check_$pid.txt; fi
-  fi
-fi
-if [ -z "$hits" ] || { ! grep -q "^VIOLATION" $out/check_$pid.txt && grep -q "no obligation was generated" $out/check_$pid.txt; }; then
-  (cd $V && python3 check.py $pid --tier $tier > $out/check_$pid.txt 2>$out/check_$pid.err; echo "exit=$? (tier $tier, full check; native sweep flagged nothing the restricted runs could decide)" >> $out/check_$pid.txt)
-fi
--if [ -n "$hits" ]; then
-  (cd $V && VERIF_ONLY="$hits" python3 check.py $pid --tier $tier > $out/check_$pid.txt 2>$out/check_$pid.err; echo "exit=$? (tier $tier, restricted to the harnesses the native sweep flagged: $hits)" >> $out/check_$pid.txt)
-  if ! grep -q "^VIOLATION" $out/check_$pid.txt && [ "$tier" = quick ]; then
-    # the flagged harnesses may belong to the thorough tier only (larger bounds, slow ones)
-    (cd $V && VERIF_ONLY="$hits" python3 check.py $pid --tier thorough > $out/check_${pid}_thorough.txt 2>$out/check_${pid}_thorough.err; echo "exit=$? (tier thorough, restricted to the harnesses the native sweep flagged: $hits)" >> $out/check_${pid}_thorough.txt)
-    if grep -q "^VIOLATION" $out/check_${pid}_thorough.txt; then cp $out/check_${pid}_thorough.txt $out/check_$pid.txt; fi
-  fi
-fi
-if [ -z "$hits" ] || { ! grep -q "^VIOLATION" $out/check_$pid.txt && grep -q "no obligation was generated" $out/check_$pid.txt; }; then
-  (cd $V && python3 check.py $pid --tier $tier > $out/check_$pid.txt 2>$out/check_$pid.err; echo "exit=$? (tier $tier, full check; native sweep flagged nothing the restricted runs could decide)" >> $out/check_$pid.txt)
-fi
-tif [ -n "$hits" ]; then
-  (cd $V && VERIF_ONLY="$hits" python3 check.py $pid --tier $tier > $out/check_$pid.txt 2>$out/check_$pid.err; echo "exit=$? (tier $tier, restricted to the harnesses the native sweep flagged: $hits)" >> $out/check_$pid.txt)
-  if ! grep -q "^VIOLATION" $out/check_$pid.txt && [ "$tier" = quick ]; then
-    # the flagged harnesses may belong to the thorough tier only (larger bounds, slow ones)
-    (cd $V && VERIF_ONLY="$hits" python3 check.py $pid --tier thorough > $out/check_${pid}_thorough.txt 2>$out/check_${pid}_thorough.err; echo "exit=$? (tier thorough, restricted to the harnesses the native sweep flagged: $hits)" >> $out/check_${pid}_thorough.txt)
-    if grep -q "^VIOLATION" $out/check_${pid}_thorough.txt; then cp $out/check_${pid}_thorough.txt $out/check_$pid.txt; fi
-  fi
-fi
-if [ -z "$hits" ] || { ! grep -q "^VIOLATION" $out/check_$pid.txt && grep -q "no obligation was generated" $out/check_$pid.txt; }; then
-  (cd $V && python3 check.py $pid --tier $tier > $out/check_$pid.txt 2>$out/check_$pid.err; echo "exit=$? (tier $tier, full check; native sweep flagged nothing the restricted runs could decide)" >> $out/check_$pid.txt)
-fi
-iif [ -n "$hits" ]; then
-  (cd $V && VERIF_ONLY="$hits" python3 check.py $pid --tier $tier > $out/check_$pid.txt 2>$out/check_$pid.err; echo "exit=$? (tier $tier, restricted to the harnesses the native sweep flagged: $hits)" >> $out/check_$pid.txt)
-  if ! grep -q "^VIOLATION" $out/check_$pid.txt && [ "$tier" = quick ]; then
-    # the flagged harnesses may belong to the thorough tier only (larger bounds, slow ones)
-    (cd $V && VERIF_ONLY="$hits" python3 check.py $pid --tier thorough > $out/check_${pid}_thorough.txt 2>$out/check_${pid}_thorough.err; echo "exit=$? (tier thorough, restricted to the harnesses the native sweep flagged: $hits)" >> $out/check_${pid}_thorough.txt)
-    if grep -q "^VIOLATION" $out/check_${pid}_thorough.txt; then cp $out/check_${pid}_thorough.txt $out/check_$pid.txt; fi
-  fi
-fi
-if [ -z "$hits" ] || { ! grep -q "^VIOLATION" $out/check_$pid.txt && grep -q "no obligation was generated" $out/check_$pid.txt; }; then
-  (cd $V && python3 check.py $pid --tier $tier > $out/check_$pid.txt 2>$out/check_$pid.err; echo "exit=$? (tier $tier, full check; native sweep flagged nothing the restricted runs could decide)" >> $out/check_$pid.txt)
-fi
-eif [ -n "$hits" ]; then
-  (cd $V && VERIF_ONLY="$hits" python3 check.py $pid --tier $tier > $out/check_$pid.txt 2>$out/check_$pid.err; echo "exit=$? (tier $tier, restricted to the harnesses the native sweep flagged: $hits)" >> $out/check_$pid.txt)
-  if ! grep -q "^VIOLATION" $out/check_$pid.txt && [ "$tier" = quick ]; then
-    # the flagged harnesses may belong to the thorough tier only (larger bounds, slow ones)
-    (cd $V && VERIF_ONLY="$hits" python3 check.py $pid --tier thorough > $out/check_${pid}_thorough.txt 2>$out/check_${pid}_thorough.err; echo "exit=$? (tier thorough, restricted to the harnesses the native sweep flagged: $hits)" >> $out/check_${pid}_thorough.txt)
-    if grep -q "^VIOLATION" $out/check_${pid}_thorough.txt; then cp $out/check_${pid}_thorough.txt $out/check_$pid.txt; fi
-  fi
-fi
-if [ -z "$hits" ] || { ! grep -q "^VIOLATION" $out/check_$pid.txt && grep -q "no obligation was generated" $out/check_$pid.txt; }; then
-  (cd $V && python3 check.py $pid --tier $tier > $out/check_$pid.txt 2>$out/check_$pid.err; echo "exit=$? (tier $tier, full check; native sweep flagged nothing the restricted runs could decide)" >> $out/check_$pid.txt)
-fi
-rif [ -n "$hits" ]; then
-  (cd $V && VERIF_ONLY="$hits" python3 check.py $pid --tier $tier > $out/check_$pid.txt 2>$out/check_$pid.err; echo "exit=$? (tier $tier, restricted to the harnesses the native sweep flagged: $hits)" >> $out/check_$pid.txt)
-  if ! grep -q "^VIOLATION" $out/check_$pid.txt && [ "$tier" = quick ]; then
-    # the flagged harnesses may belong to the thorough tier only (larger bounds, slow ones)
-    (cd $V && VERIF_ONLY="$hits" python3 check.py $pid --tier thorough > $out/check_${pid}_thorough.txt 2>$out/check_${pid}_thorough.err; echo "exit=$? (tier thorough, restricted to the harnesses the native sweep flagged: $hits)" >> $out/check_${pid}_thorough.txt)
-    if grep -q "^VIOLATION" $out/check_${pid}_thorough.txt; then cp $out/check_${pid}_thorough.txt $out/check_$pid.txt; fi
-  fi
-fi
-if [ -z "$hits" ] || { ! grep -q "^VIOLATION" $out/check_$pid.txt && grep -q "no obligation was generated" $out/check_$pid.txt; }; then
-  (cd $V && python3 check.py $pid --tier $tier > $out/check_$pid.txt 2>$out/check_$pid.err; echo "exit=$? (tier $tier, full check; native sweep flagged nothing the restricted runs could decide)" >> $out/check_$pid.txt)
-fi
- if [ -n "$hits" ]; then
-  (cd $V && VERIF_ONLY="$hits" python3 check.py $pid --tier $tier > $out/check_$pid.txt 2>$out/check_$pid.err; echo "exit=$? (tier $tier, restricted to the harnesses the native sweep flagged: $hits)" >> $out/check_$pid.txt)
-  if ! grep -q "^VIOLATION" $out/check_$pid.txt && [ "$tier" = quick ]; then
-    # the flagged harnesses may belong to the thorough tier only (larger bounds, slow ones)
-    (cd $V && VERIF_ONLY="$hits" python3 check.py $pid --tier thorough > $out/check_${pid}_thorough.txt 2>$out/check_${pid}_thorough.err; echo "exit=$? (tier thorough, restricted to the harnesses the native sweep flagged: $hits)" >> $out/check_${pid}_thorough.txt)
-    if grep -q "^VIOLATION" $out/check_${pid}_thorough.txt; then cp $out/check_${pid}_thorough.txt $out/check_$pid.txt; fi
-  fi
-fi
-if [ -z "$hits" ] || { ! grep -q "^VIOLATION" $out/check_$pid.txt && grep -q "no obligation was generated" $out/check_$pid.txt; }; then
-  (cd $V && python3 check.py $pid --tier $tier > $out/check_$pid.txt 2>$out/check_$pid.err; echo "exit=$? (tier $tier, full check; native sweep flagged nothing the restricted runs could decide)" >> $out/check_$pid.txt)
-fi
-$if [ -n "$hits" ]; then
-  (cd $V && VERIF_ONLY="$hits" python3 check.py $pid --tier $tier > $out/check_$pid.txt 2>$out/check_$pid.err; echo "exit=$? (tier $tier, restricted to the harnesses the native sweep flagged: $hits)" >> $out/check_$pid.txt)
-  if ! grep -q "^VIOLATION" $out/check_$pid.txt && [ "$tier" = quick ]; then
-    # the flagged harnesses may belong to the thorough tier only (larger bounds, slow ones)
-    (cd $V && VERIF_ONLY="$hits" python3 check.py $pid --tier thorough > $out/check_${pid}_thorough.txt 2>$out/check_${pid}_thorough.err; echo "exit=$? (tier thorough, restricted to the harnesses the native sweep flagged: $hits)" >> $out/check_${pid}_thorough.txt)
-    if grep -q "^VIOLATION" $out/check_${pid}_thorough.txt; then cp $out/check_${pid}_thorough.txt $out/check_$pid.txt; fi
-  fi
-fi
-if [ -z "$hits" ] || { ! grep -q "^VIOLATION" $out/check_$pid.txt && grep -q "no obligation was generated" $out/check_$pid.txt; }; then
-  (cd $V && python3 check.py $pid --tier $tier > $out/check_$pid.txt 2>$out/check_$pid.err; echo "exit=$? (tier $tier, full check; native sweep flagged nothing the restricted runs could decide)" >> $out/check_$pid.txt)
-fi
-tif [ -n "$hits" ]; then
-  (cd $V && VERIF_ONLY="$hits" python3 check.py $pid --tier $tier > $out/check_$pid.txt 2>$out/check_$pid.err; echo "exit=$? (tier $tier, restricted to the harnesses the native sweep flagged: $hits)" >> $out/check_$pid.txt)
-  if ! grep -q "^VIOLATION" $out/check_$pid.txt && [ "$tier" = quick ]; then
-    # the flagged harnesses may belong to the thorough tier only (larger bounds, slow ones)
-    (cd $V && VERIF_ONLY="$hits" python3 check.py $pid --tier thorough > $out/check_${pid}_thorough.txt 2>$out/check_${pid}_thorough.err; echo "exit=$? (tier thorough, restricted to the harnesses the native sweep flagged: $hits)" >> $out/check_${pid}_thorough.txt)
-    if grep -q "^VIOLATION" $out/check_${pid}_thorough.txt; then cp $out/check_${pid}_thorough.txt $out/check_$pid.txt; fi
-  fi
-fi
-if [ -z "$hits" ] || { ! grep -q "^VIOLATION" $out/check_$pid.txt && grep -q "no obligation was generated" $out/check_$pid.txt; }; then
-  (cd $V && python3 check.py $pid --tier $tier > $out/check_$pid.txt 2>$out/check_$pid.err; echo "exit=$? (tier $tier, full check; native sweep flagged nothing the restricted runs could decide)" >> $out/check_$pid.txt)
-fi
-iif [ -n "$hits" ]; then
-  (cd $V && VERIF_ONLY="$hits" python3 check.py $pid --tier $tier > $out/check_$pid.txt 2>$out/check_$pid.err; echo "exit=$? (tier $tier, restricted to the harnesses the native sweep flagged: $hits)" >> $out/check_$pid.txt)
-  if ! grep -q "^VIOLATION" $out/check_$pid.txt && [ "$tier" = quick ]; then
-    # the flagged harnesses may belong to the thorough tier only (larger bounds, slow ones)
-    (cd $V && VERIF_ONLY="$hits" python3 check.py $pid --tier thorough > $out/check_${pid}_thorough.txt 2>$out/check_${pid}_thorough.err; echo "exit=$? (tier thorough, restricted to the harnesses the native sweep flagged: $hits)" >> $out/check_${pid}_thorough.txt)
-    if grep -q "^VIOLATION" $out/check_${pid}_thorough.txt; then cp $out/check_${pid}_thorough.txt $out/check_$pid.txt; fi
-  fi
-fi
-if [ -z "$hits" ] || { ! grep -q "^VIOLATION" $out/check_$pid.txt && grep -q "no obligation was generated" $out/check_$pid.txt; }; then
-  (cd $V && python3 check.py $pid --tier $tier > $out/check_$pid.txt 2>$out/check_$pid.err; echo "exit=$? (tier $tier, full check; native sweep flagged nothing the restricted runs could decide)" >> $out/check_$pid.txt)
-fi
-eif [ -n "$hits" ]; then
-  (cd $V && VERIF_ONLY="$hits" python3 check.py $pid --tier $tier > $out/check_$pid.txt 2>$out/check_$pid.err; echo "exit=$? (tier $tier, restricted to the harnesses the native sweep flagged: $hits)" >> $out/check_$pid.txt)
-  if ! grep -q "^VIOLATION" $out/check_$pid.txt && [ "$tier" = quick ]; then
-    # the flagged harnesses may belong to the thorough tier only (larger bounds, slow ones)
-    (cd $V && VERIF_ONLY="$hits" python3 check.py $pid --tier thorough > $out/check_${pid}_thorough.txt 2>$out/check_${pid}_thorough.err; echo "exit=$? (tier thorough, restricted to the harnesses the native sweep flagged: $hits)" >> $out/check_${pid}_thorough.txt)
-    if grep -q "^VIOLATION" $out/check_${pid}_thorough.txt; then cp $out/check_${pid}_thorough.txt $out/check_$pid.txt; fi
-  fi
-fi
-if [ -z "$hits" ] || { ! grep -q "^VIOLATION" $out/check_$pid.txt && grep -q "no obligation was generated" $out/check_$pid.txt; }; then
-  (cd $V && python3 check.py $pid --tier $tier > $out/check_$pid.txt 2>$out/check_$pid.err; echo "exit=$? (tier $tier, full check; native sweep flagged nothing the restricted runs could decide)" >> $out/check_$pid.txt)
-fi
-rif [ -n "$hits" ]; then
-  (cd $V && VERIF_ONLY="$hits" python3 check.py $pid --tier $tier > $out/check_$pid.txt 2>$out/check_$pid.err; echo "exit=$? (tier $tier, restricted to the harnesses the native sweep flagged: $hits)" >> $out/check_$pid.txt)
-  if ! grep -q "^VIOLATION" $out/check_$pid.txt && [ "$tier" = quick ]; then
-    # the flagged harnesses may belong to the thorough tier only (larger bounds, slow ones)
-    (cd $V && VERIF_ONLY="$hits" python3 check.py $pid --tier thorough > $out/check_${pid}_thorough.txt 2>$out/check_${pid}_thorough.err; echo "exit=$? (tier thorough, restricted to the harnesses the native sweep flagged: $hits)" >> $out/check_${pid}_thorough.txt)
-    if grep -q "^VIOLATION" $out/check_${pid}_thorough.txt; then cp $out/check_${pid}_thorough.txt $out/check_$pid.txt; fi
-  fi
-fi
-if [ -z "$hits" ] || { ! grep -q "^VIOLATION" $out/check_$pid.txt && grep -q "no obligation was generated" $out/check_$pid.txt; }; then
-  (cd $V && python3 check.py $pid --tier $tier > $out/check_$pid.txt 2>$out/check_$pid.err; echo "exit=$? (tier $tier, full check; native sweep flagged nothing the restricted runs could decide)" >> $out/check_$pid.txt)
-fi
- if [ -n "$hits" ]; then
-  (cd $V && VERIF_ONLY="$hits" python3 check.py $pid --tier $tier > $out/check_$pid.txt 2>$out/check_$pid.err; echo "exit=$? (tier $tier, restricted to the harnesses the native sweep flagged: $hits)" >> $out/check_$pid.txt)
-  if ! grep -q "^VIOLATION" $out/check_$pid.txt && [ "$tier" = quick ]; then
-    # the flagged harnesses may belong to the thorough tier only (larger bounds, slow ones)
-    (cd $V && VERIF_ONLY="$hits" python3 check.py $pid --tier thorough > $out/check_${pid}_thorough.txt 2>$out/check_${pid}_thorough.err; echo "exit=$? (tier thorough, restricted to the harnesses the native sweep flagged: $hits)" >> $out/check_${pid}_thorough.txt)
-    if grep -q "^VIOLATION" $out/check_${pid}_thorough.txt; then cp $out/check_${pid}_thorough.txt $out/check_$pid.txt; fi
-  fi
-fi
-if [ -z "$hits" ] || { ! grep -q "^VIOLATION" $out/check_$pid.txt && grep -q "no obligation was generated" $out/check_$pid.txt; }; then
-  (cd $V && python3 check.py $pid --tier $tier > $out/check_$pid.txt 2>$out/check_$pid.err; echo "exit=$? (tier $tier, full check; native sweep flagged nothing the restricted runs could decide)" >> $out/check_$pid.txt)
-fi
->if [ -n "$hits" ]; then
-  (cd $V && VERIF_ONLY="$hits" python3 check.py $pid --tier $tier > $out/check_$pid.txt 2>$out/check_$pid.err; echo "exit=$? (tier $tier, restricted to the harnesses the native sweep flagged: $hits)" >> $out/check_$pid.txt)
-  if ! grep -q "^VIOLATION" $out/check_$pid.txt && [ "$tier" = quick ]; then
-    # the flagged harnesses may belong to the thorough tier only (larger bounds, slow ones)
-    (cd $V && VERIF_ONLY="$hits" python3 check.py $pid --tier thorough > $out/check_${pid}_thorough.txt 2>$out/check_${pid}_thorough.err; echo "exit=$? (tier thorough, restricted to the harnesses the native sweep flagged: $hits)" >> $out/check_${pid}_thorough.txt)
-    if grep -q "^VIOLATION" $out/check_${pid}_thorough.txt; then cp $out/check_${pid}_thorough.txt $out/check_$pid.txt; fi
-  fi
-fi
-if [ -z "$hits" ] || { ! grep -q "^VIOLATION" $out/check_$pid.txt && grep -q "no obligation was generated" $out/check_$pid.txt; }; then
-  (cd $V && python3 check.py $pid --tier $tier > $out/check_$pid.txt 2>$out/check_$pid.err; echo "exit=$? (tier $tier, full check; native sweep flagged nothing the restricted runs could decide)" >> $out/check_$pid.txt)
-fi
- if [ -n "$hits" ]; then
-  (cd $V && VERIF_ONLY="$hits" python3 check.py $pid --tier $tier > $out/check_$pid.txt 2>$out/check_$pid.err; echo "exit=$? (tier $tier, restricted to the harnesses the native sweep flagged: $hits)" >> $out/check_$pid.txt)
-  if ! grep -q "^VIOLATION" $out/check_$pid.txt && [ "$tier" = quick ]; then
-    # the flagged harnesses may belong to the thorough tier only (larger bounds, slow ones)
-    (cd $V && VERIF_ONLY="$hits" python3 check.py $pid --tier thorough > $out/check_${pid}_thorough.txt 2>$out/check_${pid}_thorough.err; echo "exit=$? (tier thorough, restricted to the harnesses the native sweep flagged: $hits)" >> $out/check_${pid}_thorough.txt)
-    if grep -q "^VIOLATION" $out/check_${pid}_thorough.txt; then cp $out/check_${pid}_thorough.txt $out/check_$pid.txt; fi
-  fi
-fi
-if [ -z "$hits" ] || { ! grep -q "^VIOLATION" $out/check_$pid.txt && grep -q "no obligation was generated" $out/check_$pid.txt; }; then
-  (cd $V && python3 check.py $pid --tier $tier > $out/check_$pid.txt 2>$out/check_$pid.err; echo "exit=$? (tier $tier, full check; native sweep flagged nothing the restricted runs could decide)" >> $out/check_$pid.txt)
-fi
-$if [ -n "$hits" ]; then
-  (cd $V && VERIF_ONLY="$hits" python3 check.py $pid --tier $tier > $out/check_$pid.txt 2>$out/check_$pid.err; echo "exit=$? (tier $tier, restricted to the harnesses the native sweep flagged: $hits)" >> $out/check_$pid.txt)
-  if ! grep -q "^VIOLATION" $out/check_$pid.txt && [ "$tier" = quick ]; then
-    # the flagged harnesses may belong to the thorough tier only (larger bounds, slow ones)
-    (cd $V && VERIF_ONLY="$hits" python3 check.py $pid --tier thorough > $out/check_${pid}_thorough.txt 2>$out/check_${pid}_thorough.err; echo "exit=$? (tier thorough, restricted to the harnesses the native sweep flagged: $hits)" >> $out/check_${pid}_thorough.txt)
-    if grep -q "^VIOLATION" $out/check_${pid}_thorough.txt; then cp $out/check_${pid}_thorough.txt $out/check_$pid.txt; fi
-  fi
-fi
-if [ -z "$hits" ] || { ! grep -q "^VIOLATION" $out/check_$pid.txt && grep -q "no obligation was generated" $out/check_$pid.txt; }; then
-  (cd $V && python3 check.py $pid --tier $tier > $out/check_$pid.txt 2>$out/check_$pid.err; echo "exit=$? (tier $tier, full check; native sweep flagged nothing the restricted runs could decide)" >> $out/check_$pid.txt)
-fi
-oif [ -n "$hits" ]; then
-  (cd $V && VERIF_ONLY="$hits" python3 check.py $pid --tier $tier > $out/check_$pid.txt 2>$out/check_$pid.err; echo "exit=$? (tier $tier, restricted to the harnesses the native sweep flagged: $hits)" >> $out/check_$pid.txt)
-  if ! grep -q "^VIOLATION" $out/check_$pid.txt && [ "$tier" = quick ]; then
-    # the flagged harnesses may belong to the thorough tier only (larger bounds, slow ones)
-    (cd $V && VERIF_ONLY="$hits" python3 check.py $pid --tier thorough > $out/check_${pid}_thorough.txt 2>$out/check_${pid}_thorough.err; echo "exit=$? (tier thorough, restricted to the harnesses the native sweep flagged: $hits)" >> $out/check_${pid}_thorough.txt)
-    if grep -q "^VIOLATION" $out/check_${pid}_thorough.txt; then cp $out/check_${pid}_thorough.txt $out/check_$pid.txt; fi
-  fi
-fi
-if [ -z "$hits" ] || { ! grep -q "^VIOLATION" $out/check_$pid.txt && grep -q "no obligation was generated" $out/check_$pid.txt; }; then
-  (cd $V && python3 check.py $pid --tier $tier > $out/check_$pid.txt 2>$out/check_$pid.err; echo "exit=$? (tier $tier, full check; native sweep flagged nothing the restricted runs could decide)" >> $out/check_$pid.txt)
-fi
-uif [ -n "$hits" ]; then
-  (cd $V && VERIF_ONLY="$hits" python3 check.py $pid --tier $tier > $out/check_$pid.txt 2>$out/check_$pid.err; echo "exit=$? (tier $tier, restricted to the harnesses the native sweep flagged: $hits)" >> $out/check_$pid.txt)
-  if ! grep -q "^VIOLATION" $out/check_$pid.txt && [ "$tier" = quick ]; then
-    # the flagged harnesses may belong to the thorough tier only (larger bounds, slow ones)
-    (cd $V && VERIF_ONLY="$hits" python3 check.py $pid --tier thorough > $out/check_${pid}_thorough.txt 2>$out/check_${pid}_thorough.err; echo "exit=$? (tier thorough, restricted to the harnesses the native sweep flagged: $hits)" >> $out/check_${pid}_thorough.txt)
-    if grep -q "^VIOLATION" $out/check_${pid}_thorough.txt; then cp $out/check_${pid}_thorough.txt $out/check_$pid.txt; fi
-  fi
-fi
-if [ -z "$hits" ] || { ! grep -q "^VIOLATION" $out/check_$pid.txt && grep -q "no obligation was generated" $out/check_$pid.txt; }; then
-  (cd $V && python3 check.py $pid --tier $tier > $out/check_$pid.txt 2>$out/check_$pid.err; echo "exit=$? (tier $tier, full check; native sweep flagged nothing the restricted runs could decide)" >> $out/check_$pid.txt)
-fi
-tif [ -n "$hits" ]; then
-  (cd $V && VERIF_ONLY="$hits" python3 check.py $pid --tier $tier > $out/check_$pid.txt 2>$out/check_$pid.err; echo "exit=$? (tier $tier, restricted to the harnesses the native sweep flagged: $hits)" >> $out/check_$pid.txt)
-  if ! grep -q "^VIOLATION" $out/check_$pid.txt && [ "$tier" = quick ]; then
-    # the flagged harnesses may belong to the thorough tier only (larger bounds, slow ones)
-    (cd $V && VERIF_ONLY="$hits" python3 check.py $pid --tier thorough > $out/check_${pid}_thorough.txt 2>$out/check_${pid}_thorough.err; echo "exit=$? (tier thorough, restricted to the harnesses the native sweep flagged: $hits)" >> $out/check_${pid}_thorough.txt)
-    if grep -q "^VIOLATION" $out/check_${pid}_thorough.txt; then cp $out/check_${pid}_thorough.txt $out/check_$pid.txt; fi
-  fi
-fi
-if [ -z "$hits" ] || { ! grep -q "^VIOLATION" $out/check_$pid.txt && grep -q "no obligation was generated" $out/check_$pid.txt; }; then
-  (cd $V && python3 check.py $pid --tier $tier > $out/check_$pid.txt 2>$out/check_$pid.err; echo "exit=$? (tier $tier, full check; native sweep flagged nothing the restricted runs could decide)" >> $out/check_$pid.txt)
-fi
-/if [ -n "$hits" ]; then
-  (cd $V && VERIF_ONLY="$hits" python3 check.py $pid --tier $tier > $out/check_$pid.txt 2>$out/check_$pid.err; echo "exit=$? (tier $tier, restricted to the harnesses the native sweep flagged: $hits)" >> $out/check_$pid.txt)
-  if ! grep -q "^VIOLATION" $out/check_$pid.txt && [ "$tier" = quick ]; then
-    # the flagged harnesses may belong to the thorough tier only (larger bounds, slow ones)
-    (cd $V && VERIF_ONLY="$hits" python3 check.py $pid --tier thorough > $out/check_${pid}_thorough.txt 2>$out/check_${pid}_thorough.err; echo "exit=$? (tier thorough, restricted to the harnesses the native sweep flagged: $hits)" >> $out/check_${pid}_thorough.txt)
-    if grep -q "^VIOLATION" $out/check_${pid}_thorough.txt; then cp $out/check_${pid}_thorough.txt $out/check_$pid.txt; fi
-  fi
-fi
-if [ -z "$hits" ] || { ! grep -q "^VIOLATION" $out/check_$pid.txt && grep -q "no obligation was generated" $out/check_$pid.txt; }; then
-  (cd $V && python3 check.py $pid --tier $tier > $out/check_$pid.txt 2>$out/check_$pid.err; echo "exit=$? (tier $tier, full check; native sweep flagged nothing the restricted runs could decide)" >> $out/check_$pid.txt)
-fi
-cif [ -n "$hits" ]; then
-  (cd $V && VERIF_ONLY="$hits" python3 check.py $pid --tier $tier > $out/check_$pid.txt 2>$out/check_$pid.err; echo "exit=$? (tier $tier, restricted to the harnesses the native sweep flagged: $hits)" >> $out/check_$pid.txt)
-  if ! grep -q "^VIOLATION" $out/check_$pid.txt && [ "$tier" = quick ]; then
-    # the flagged harnesses may belong to the thorough tier only (larger bounds, slow ones)
-    (cd $V && VERIF_ONLY="$hits" python3 check.py $pid --tier thorough > $out/check_${pid}_thorough.txt 2>$out/check_${pid}_thorough.err; echo "exit=$? (tier thorough, restricted to the harnesses the native sweep flagged: $hits)" >> $out/check_${pid}_thorough.txt)
-    if grep -q "^VIOLATION" $out/check_${pid}_thorough.txt; then cp $out/check_${pid}_thorough.txt $out/check_$pid.txt; fi
-  fi
-fi
-if [ -z "$hits" ] || { ! grep -q "^VIOLATION" $out/check_$pid.txt && grep -q "no obligation was generated" $out/check_$pid.txt; }; then
-  (cd $V && python3 check.py $pid --tier $tier > $out/check_$pid.txt 2>$out/check_$pid.err; echo "exit=$? (tier $tier, full check; native sweep flagged nothing the restricted runs could decide)" >> $out/check_$pid.txt)
-fi
-hif [ -n "$hits" ]; then
-  (cd $V && VERIF_ONLY="$hits" python3 check.py $pid --tier $tier > $out/check_$pid.txt 2>$out/check_$pid.err; echo "exit=$? (tier $tier, restricted to the harnesses the native sweep flagged: $hits)" >> $out/check_$pid.txt)
-  if ! grep -q "^VIOLATION" $out/check_$pid.txt && [ "$tier" = quick ]; then
-    # the flagged harnesses may belong to the thorough tier only (larger bounds, slow ones)
-    (cd $V && VERIF_ONLY="$hits" python3 check.py $pid --tier thorough > $out/check_${pid}_thorough.txt 2>$out/check_${pid}_thorough.err; echo "exit=$? (tier thorough, restricted to the harnesses the native sweep flagged: $hits)" >> $out/check_${pid}_thorough.txt)
-    if grep -q "^VIOLATION" $out/check_${pid}_thorough.txt; then cp $out/check_${pid}_thorough.txt $out/check_$pid.txt; fi
-  fi
-fi
-if [ -z "$hits" ] || { ! grep -q "^VIOLATION" $out/check_$pid.txt && grep -q "no obligation was generated" $out/check_$pid.txt; }; then
-  (cd $V && python3 check.py $pid --tier $tier > $out/check_$pid.txt 2>$out/check_$pid.err; echo "exit=$? (tier $tier, full check; native sweep flagged nothing the restricted runs could decide)" >> $out/check_$pid.txt)
-fi
-eif [ -n "$hits" ]; then
-  (cd $V && VERIF_ONLY="$hits" python3 check.py $pid --tier $tier > $out/check_$pid.txt 2>$out/check_$pid.err; echo "exit=$? (tier $tier, restricted to the harnesses the native sweep flagged: $hits)" >> $out/check_$pid.txt)
-  if ! grep -q "^VIOLATION" $out/check_$pid.txt && [ "$tier" = quick ]; then
-    # the flagged harnesses may belong to the thorough tier only (larger bounds, slow ones)
-    (cd $V && VERIF_ONLY="$hits" python3 check.py $pid --tier thorough > $out/check_${pid}_thorough.txt 2>$out/check_${pid}_thorough.err; echo "exit=$? (tier thorough, restricted to the harnesses the native sweep flagged: $hits)" >> $out/check_${pid}_thorough.txt)
-    if grep -q "^VIOLATION" $out/check_${pid}_thorough.txt; then cp $out/check_${pid}_thorough.txt $out/check_$pid.txt; fi
-  fi
-fi
-if [ -z "$hits" ] || { ! grep -q "^VIOLATION" $out/check_$pid.txt && grep -q "no obligation was generated" $out/check_$pid.txt; }; then
-  (cd $V && python3 check.py $pid --tier $tier > $out/check_$pid.txt 2>$out/check_$pid.err; echo "exit=$? (tier $tier, full check; native sweep flagged nothing the restricted runs could decide)" >> $out/check_$pid.txt)
-fi
-cif [ -n "$hits" ]; then
-  (cd $V && VERIF_ONLY="$hits" python3 check.py $pid --tier $tier > $out/check_$pid.txt 2>$out/check_$pid.err; echo "exit=$? (tier $tier, restricted to the harnesses the native sweep flagged: $hits)" >> $out/check_$pid.txt)
-  if ! grep -q "^VIOLATION" $out/check_$pid.txt && [ "$tier" = quick ]; then
-    # the flagged harnesses may belong to the thorough tier only (larger bounds, slow ones)
-    (cd $V && VERIF_ONLY="$hits" python3 check.py $pid --tier thorough > $out/check_${pid}_thorough.txt 2>$out/check_${pid}_thorough.err; echo "exit=$? (tier thorough, restricted to the harnesses the native sweep flagged: $hits)" >> $out/check_${pid}_thorough.txt)
-    if grep -q "^VIOLATION" $out/check_${pid}_thorough.txt; then cp $out/check_${pid}_thorough.txt $out/check_$pid.txt; fi
-  fi
-fi
-if [ -z "$hits" ] || { ! grep -q "^VIOLATION" $out/check_$pid.txt && grep -q "no obligation was generated" $out/check_$pid.txt; }; then
-  (cd $V && python3 check.py $pid --tier $tier > $out/check_$pid.txt 2>$out/check_$pid.err; echo "exit=$? (tier $tier, full check; native sweep flagged nothing the restricted runs could decide)" >> $out/check_$pid.txt)
-fi
-kif [ -n "$hits" ]; then
-  (cd $V && VERIF_ONLY="$hits" python3 check.py $pid --tier $tier > $out/check_$pid.txt 2>$out/check_$pid.err; echo "exit=$? (tier $tier, restricted to the harnesses the native sweep flagged: $hits)" >> $out/check_$pid.txt)
-  if ! grep -q "^VIOLATION" $out/check_$pid.txt && [ "$tier" = quick ]; then
-    # the flagged harnesses may belong to the thorough tier only (larger bounds, slow ones)
-    (cd $V && VERIF_ONLY="$hits" python3 check.py $pid --tier thorough > $out/check_${pid}_thorough.txt 2>$out/check_${pid}_thorough.err; echo "exit=$? (tier thorough, restricted to the harnesses the native sweep flagged: $hits)" >> $out/check_${pid}_thorough.txt)
-    if grep -q "^VIOLATION" $out/check_${pid}_thorough.txt; then cp $out/check_${pid}_thorough.txt $out/check_$pid.txt; fi
-  fi
-fi
-if [ -z "$hits" ] || { ! grep -q "^VIOLATION" $out/check_$pid.txt && grep -q "no obligation was generated" $out/check_$pid.txt; }; then
-  (cd $V && python3 check.py $pid --tier $tier > $out/check_$pid.txt 2>$out/check_$pid.err; echo "exit=$? (tier $tier, full check; native sweep flagged nothing the restricted runs could decide)" >> $out/check_$pid.txt)
-fi
-_if [ -n "$hits" ]; then
-  (cd $V && VERIF_ONLY="$hits" python3 check.py $pid --tier $tier > $out/check_$pid.txt 2>$out/check_$pid.err; echo "exit=$? (tier $tier, restricted to the harnesses the native sweep flagged: $hits)" >> $out/check_$pid.txt)
-  if ! grep -q "^VIOLATION" $out/check_$pid.txt && [ "$tier" = quick ]; then
-    # the flagged harnesses may belong to the thorough tier only (larger bounds, slow ones)
-    (cd $V && VERIF_ONLY="$hits" python3 check.py $pid --tier thorough > $out/check_${pid}_thorough.txt 2>$out/check_${pid}_thorough.err; echo "exit=$? (tier thorough, restricted to the harnesses the native sweep flagged: $hits)" >> $out/check_${pid}_thorough.txt)
-    if grep -q "^VIOLATION" $out/check_${pid}_thorough.txt; then cp $out/check_${pid}_thorough.txt $out/check_$pid.txt; fi
-  fi
-fi
-if [ -z "$hits" ] || { ! grep -q "^VIOLATION" $out/check_$pid.txt && grep -q "no obligation was generated" $out/check_$pid.txt; }; then
-  (cd $V && python3 check.py $pid --tier $tier > $out/check_$pid.txt 2>$out/check_$pid.err; echo "exit=$? (tier $tier, full check; native sweep flagged nothing the restricted runs could decide)" >> $out/check_$pid.txt)
-fi
-$if [ -n "$hits" ]; then
-  (cd $V && VERIF_ONLY="$hits" python3 check.py $pid --tier $tier > $out/check_$pid.txt 2>$out/check_$pid.err; echo "exit=$? (tier $tier, restricted to the harnesses the native sweep flagged: $hits)" >> $out/check_$pid.txt)
-  if ! grep -q "^VIOLATION" $out/check_$pid.txt && [ "$tier" = quick ]; then
-    # the flagged harnesses may belong to the thorough tier only (larger bounds, slow ones)
-    (cd $V && VERIF_ONLY="$hits" python3 check.py $pid --tier thorough > $out/check_${pid}_thorough.txt 2>$out/check_${pid}_thorough.err; echo "exit=$? (tier thorough, restricted to the harnesses the native sweep flagged: $hits)" >> $out/check_${pid}_thorough.txt)
-    if grep -q "^VIOLATION" $out/check_${pid}_thorough.txt; then cp $out/check_${pid}_thorough.txt $out/check_$pid.txt; fi
-  fi
-fi
-if [ -z "$hits" ] || { ! grep -q "^VIOLATION" $out/check_$pid.txt && grep -q "no obligation was generated" $out/check_$pid.txt; }; then
-  (cd $V && python3 check.py $pid --tier $tier > $out/check_$pid.txt 2>$out/check_$pid.err; echo "exit=$? (tier $tier, full check; native sweep flagged nothing the restricted runs could decide)" >> $out/check_$pid.txt)
-fi
-pif [ -n "$hits" ]; then
-  (cd $V && VERIF_ONLY="$hits" python3 check.py $pid --tier $tier > $out/check_$pid.txt 2>$out/check_$pid.err; echo "exit=$? (tier $tier, restricted to the harnesses the native sweep flagged: $hits)" >> $out/check_$pid.txt)
-  if ! grep -q "^VIOLATION" $out/check_$pid.txt && [ "$tier" = quick ]; then
-    # the flagged harnesses may belong to the thorough tier only (larger bounds, slow ones)
-    (cd $V && VERIF_ONLY="$hits" python3 check.py $pid --tier thorough > $out/check_${pid}_thorough.txt 2>$out/check_${pid}_thorough.err; echo "exit=$? (tier thorough, restricted to the harnesses the native sweep flagged: $hits)" >> $out/check_${pid}_thorough.txt)
-    if grep -q "^VIOLATION" $out/check_${pid}_thorough.txt; then cp $out/check_${pid}_thorough.txt $out/check_$pid.txt; fi
-  fi
-fi
-if [ -z "$hits" ] || { ! grep -q "^VIOLATION" $out/check_$pid.txt && grep -q "no obligation was generated" $out/check_$pid.txt; }; then
-  (cd $V && python3 check.py $pid --tier $tier > $out/check_$pid.txt 2>$out/check_$pid.err; echo "exit=$? (tier $tier, full check; native sweep flagged nothing the restricted runs could decide)" >> $out/check_$pid.txt)
-fi
-iif [ -n "$hits" ]; then
-  (cd $V && VERIF_ONLY="$hits" python3 check.py $pid --tier $tier > $out/check_$pid.txt 2>$out/check_$pid.err; echo "exit=$? (tier $tier, restricted to the harnesses the native sweep flagged: $hits)" >> $out/check_$pid.txt)
-  if ! grep -q "^VIOLATION" $out/check_$pid.txt && [ "$tier" = quick ]; then
-    # the flagged harnesses may belong to the thorough tier only (larger bounds, slow ones)
-    (cd $V && VERIF_ONLY="$hits" python3 check.py $pid --tier thorough > $out/check_${pid}_thorough.txt 2>$out/check_${pid}_thorough.err; echo "exit=$? (tier thorough, restricted to the harnesses the native sweep flagged: $hits)" >> $out/check_${pid}_thorough.txt)
-    if grep -q "^VIOLATION" $out/check_${pid}_thorough.txt; then cp $out/check_${pid}_thorough.txt $out/check_$pid.txt; fi
-  fi
-fi
-if [ -z "$hits" ] || { ! grep -q "^VIOLATION" $out/check_$pid.txt && grep -q "no obligation was generated" $out/check_$pid.txt; }; then
-  (cd $V && python3 check.py $pid --tier $tier > $out/check_$pid.txt 2>$out/check_$pid.err; echo "exit=$? (tier $tier, full check; native sweep flagged nothing the restricted runs could decide)" >> $out/check_$pid.txt)
-fi
-dif [ -n "$hits" ]; then
-  (cd $V && VERIF_ONLY="$hits" python3 check.py $pid --tier $tier > $out/check_$pid.txt 2>$out/check_$pid.err; echo "exit=$? (tier $tier, restricted to the harnesses the native sweep flagged: $hits)" >> $out/check_$pid.txt)
-  if ! grep -q "^VIOLATION" $out/check_$pid.txt && [ "$tier" = quick ]; then
-    # the flagged harnesses may belong to the thorough tier only (larger bounds, slow ones)
-    (cd $V && VERIF_ONLY="$hits" python3 check.py $pid --tier thorough > $out/check_${pid}_thorough.txt 2>$out/check_${pid}_thorough.err; echo "exit=$? (tier thorough, restricted to the harnesses the native sweep flagged: $hits)" >> $out/check_${pid}_thorough.txt)
-    if grep -q "^VIOLATION" $out/check_${pid}_thorough.txt; then cp $out/check_${pid}_thorough.txt $out/check_$pid.txt; fi
-  fi
-fi
-if [ -z "$hits" ] || { ! grep -q "^VIOLATION" $out/check_$pid.txt && grep -q "no obligation was generated" $out/check_$pid.txt; }; then
-  (cd $V && python3 check.py $pid --tier $tier > $out/check_$pid.txt 2>$out/check_$pid.err; echo "exit=$? (tier $tier, full check; native sweep flagged nothing the restricted runs could decide)" >> $out/check_$pid.txt)
-fi
-.if [ -n "$hits" ]; then
-  (cd $V && VERIF_ONLY="$hits" python3 check.py $pid --tier $tier > $out/check_$pid.txt 2>$out/check_$pid.err; echo "exit=$? (tier $tier, restricted to the harnesses the native sweep flagged: $hits)" >> $out/check_$pid.txt)
-  if ! grep -q "^VIOLATION" $out/check_$pid.txt && [ "$tier" = quick ]; then
-    # the flagged harnesses may belong to the thorough tier only (larger bounds, slow ones)
-    (cd $V && VERIF_ONLY="$hits" python3 check.py $pid --tier thorough > $out/check_${pid}_thorough.txt 2>$out/check_${pid}_thorough.err; echo "exit=$? (tier thorough, restricted to the harnesses the native sweep flagged: $hits)" >> $out/check_${pid}_thorough.txt)
-    if grep -q "^VIOLATION" $out/check_${pid}_thorough.txt; then cp $out/check_${pid}_thorough.txt $out/check_$pid.txt; fi
-  fi
-fi
-if [ -z "$hits" ] || { ! grep -q "^VIOLATION" $out/check_$pid.txt && grep -q "no obligation was generated" $out/check_$pid.txt; }; then
-  (cd $V && python3 check.py $pid --tier $tier > $out/check_$pid.txt 2>$out/check_$pid.err; echo "exit=$? (tier $tier, full check; native sweep flagged nothing the restricted runs could decide)" >> $out/check_$pid.txt)
-fi
-tif [ -n "$hits" ]; then
-  (cd $V && VERIF_ONLY="$hits" python3 check.py $pid --tier $tier > $out/check_$pid.txt 2>$out/check_$pid.err; echo "exit=$? (tier $tier, restricted to the harnesses the native sweep flagged: $hits)" >> $out/check_$pid.txt)
-  if ! grep -q "^VIOLATION" $out/check_$pid.txt && [ "$tier" = quick ]; then
-    # the flagged harnesses may belong to the thorough tier only (larger bounds, slow ones)
-    (cd $V && VERIF_ONLY="$hits" python3 check.py $pid --tier thorough > $out/check_${pid}_thorough.txt 2>$out/check_${pid}_thorough.err; echo "exit=$? (tier thorough, restricted to the harnesses the native sweep flagged: $hits)" >> $out/check_${pid}_thorough.txt)
-    if grep -q "^VIOLATION" $out/check_${pid}_thorough.txt; then cp $out/check_${pid}_thorough.txt $out/check_$pid.txt; fi
-  fi
-fi
-if [ -z "$hits" ] || { ! grep -q "^VIOLATION" $out/check_$pid.txt && grep -q "no obligation was generated" $out/check_$pid.txt; }; then
-  (cd $V && python3 check.py $pid --tier $tier > $out/check_$pid.txt 2>$out/check_$pid.err; echo "exit=$? (tier $tier, full check; native sweep flagged nothing the restricted runs could decide)" >> $out/check_$pid.txt)
-fi
-xif [ -n "$hits" ]; then
-  (cd $V && VERIF_ONLY="$hits" python3 check.py $pid --tier $tier > $out/check_$pid.txt 2>$out/check_$pid.err; echo "exit=$? (tier $tier, restricted to the harnesses the native sweep flagged: $hits)" >> $out/check_$pid.txt)
-  if ! grep -q "^VIOLATION" $out/check_$pid.txt && [ "$tier" = quick ]; then
-    # the flagged harnesses may belong to the thorough tier only (larger bounds, slow ones)
-    (cd $V && VERIF_ONLY="$hits" python3 check.py $pid --tier thorough > $out/check_${pid}_thorough.txt 2>$out/check_${pid}_thorough.err; echo "exit=$? (tier thorough, restricted to the harnesses the native sweep flagged: $hits)" >> $out/check_${pid}_thorough.txt)
-    if grep -q "^VIOLATION" $out/check_${pid}_thorough.txt; then cp $out/check_${pid}_thorough.txt $out/check_$pid.txt; fi
-  fi
-fi
-if [ -z "$hits" ] || { ! grep -q "^VIOLATION" $out/check_$pid.txt && grep -q "no obligation was generated" $out/check_$pid.txt; }; then
-  (cd $V && python3 check.py $pid --tier $tier > $out/check_$pid.txt 2>$out/check_$pid.err; echo "exit=$? (tier $tier, full check; native sweep flagged nothing the restricted runs could decide)" >> $out/check_$pid.txt)
-fi
-tif [ -n "$hits" ]; then
-  (cd $V && VERIF_ONLY="$hits" python3 check.py $pid --tier $tier > $out/check_$pid.txt 2>$out/check_$pid.err; echo "exit=$? (tier $tier, restricted to the harnesses the native sweep flagged: $hits)" >> $out/check_$pid.txt)
-  if ! grep -q "^VIOLATION" $out/check_$pid.txt && [ "$tier" = quick ]; then
-    # the flagged harnesses may belong to the thorough tier only (larger bounds, slow ones)
-    (cd $V && VERIF_ONLY="$hits" python3 check.py $pid --tier thorough > $out/check_${pid}_thorough.txt 2>$out/check_${pid}_thorough.err; echo "exit=$? (tier thorough, restricted to the harnesses the native sweep flagged: $hits)" >> $out/check_${pid}_thorough.txt)
-    if grep -q "^VIOLATION" $out/check_${pid}_thorough.txt; then cp $out/check_${pid}_thorough.txt $out/check_$pid.txt; fi
-  fi
-fi
-if [ -z "$hits" ] || { ! grep -q "^VIOLATION" $out/check_$pid.txt && grep -q "no obligation was generated" $out/check_$pid.txt; }; then
-  (cd $V && python3 check.py $pid --tier $tier > $out/check_$pid.txt 2>$out/check_$pid.err; echo "exit=$? (tier $tier, full check; native sweep flagged nothing the restricted runs could decide)" >> $out/check_$pid.txt)
-fi
- if [ -n "$hits" ]; then
-  (cd $V && VERIF_ONLY="$hits" python3 check.py $pid --tier $tier > $out/check_$pid.txt 2>$out/check_$pid.err; echo "exit=$? (tier $tier, restricted to the harnesses the native sweep flagged: $hits)" >> $out/check_$pid.txt)
-  if ! grep -q "^VIOLATION" $out/check_$pid.txt && [ "$tier" = quick ]; then
-    # the flagged harnesses may belong to the thorough tier only (larger bounds, slow ones)
-    (cd $V && VERIF_ONLY="$hits" python3 check.py $pid --tier thorough > $out/check_${pid}_thorough.txt 2>$out/check_${pid}_thorough.err; echo "exit=$? (tier thorough, restricted to the harnesses the native sweep flagged: $hits)" >> $out/check_${pid}_thorough.txt)
-    if grep -q "^VIOLATION" $out/check_${pid}_thorough.txt; then cp $out/check_${pid}_thorough.txt $out/check_$pid.txt; fi
-  fi
-fi
-if [ -z "$hits" ] || { ! grep -q "^VIOLATION" $out/check_$pid.txt && grep -q "no obligation was generated" $out/check_$pid.txt; }; then
-  (cd $V && python3 check.py $pid --tier $tier > $out/check_$pid.txt 2>$out/check_$pid.err; echo "exit=$? (tier $tier, full check; native sweep flagged nothing the restricted runs could decide)" >> $out/check_$pid.txt)
-fi
-2if [ -n "$hits" ]; then
-  (cd $V && VERIF_ONLY="$hits" python3 check.py $pid --tier $tier > $out/check_$pid.txt 2>$out/check_$pid.err; echo "exit=$? (tier $tier, restricted to the harnesses the native sweep flagged: $hits)" >> $out/check_$pid.txt)
-  if ! grep -q "^VIOLATION" $out/check_$pid.txt && [ "$tier" = quick ]; then
-    # the flagged harnesses may belong to the thorough tier only (larger bounds, slow ones)
-    (cd $V && VERIF_ONLY="$hits" python3 check.py $pid --tier thorough > $out/check_${pid}_thorough.txt 2>$out/check_${pid}_thorough.err; echo "exit=$? (tier thorough, restricted to the harnesses the native sweep flagged: $hits)" >> $out/check_${pid}_thorough.txt)
-    if grep -q "^VIOLATION" $out/check_${pid}_thorough.txt; then cp $out/check_${pid}_thorough.txt $out/check_$pid.txt; fi
-  fi
-fi
-if [ -z "$hits" ] || { ! grep -q "^VIOLATION" $out/check_$pid.txt && grep -q "no obligation was generated" $out/check_$pid.txt; }; then
-  (cd $V && python3 check.py $pid --tier $tier > $out/check_$pid.txt 2>$out/check_$pid.err; echo "exit=$? (tier $tier, full check; native sweep flagged nothing the restricted runs could decide)" >> $out/check_$pid.txt)
-fi
->if [ -n "$hits" ]; then
-  (cd $V && VERIF_ONLY="$hits" python3 check.py $pid --tier $tier > $out/check_$pid.txt 2>$out/check_$pid.err; echo "exit=$? (tier $tier, restricted to the harnesses the native sweep flagged: $hits)" >> $out/check_$pid.txt)
-  if ! grep -q "^VIOLATION" $out/check_$pid.txt && [ "$tier" = quick ]; then
-    # the flagged harnesses may belong to the thorough tier only (larger bounds, slow ones)
-    (cd $V && VERIF_ONLY="$hits" python3 check.py $pid --tier thorough > $out/check_${pid}_thorough.txt 2>$out/check_${pid}_thorough.err; echo "exit=$? (tier thorough, restricted to the harnesses the native sweep flagged: $hits)" >> $out/check_${pid}_thorough.txt)
-    if grep -q "^VIOLATION" $out/check_${pid}_thorough.txt; then cp $out/check_${pid}_thorough.txt $out/check_$pid.txt; fi
-  fi
-fi
-if [ -z "$hits" ] || { ! grep -q "^VIOLATION" $out/check_$pid.txt && grep -q "no obligation was generated" $out/check_$pid.txt; }; then
-  (cd $V && python3 check.py $pid --tier $tier > $out/check_$pid.txt 2>$out/check_$pid.err; echo "exit=$? (tier $tier, full check; native sweep flagged nothing the restricted runs could decide)" >> $out/check_$pid.txt)
-fi
-$if [ -n "$hits" ]; then
-  (cd $V && VERIF_ONLY="$hits" python3 check.py $pid --tier $tier > $out/check_$pid.txt 2>$out/check_$pid.err; echo "exit=$? (tier $tier, restricted to the harnesses the native sweep flagged: $hits)" >> $out/check_$pid.txt)
-  if ! grep -q "^VIOLATION" $out/check_$pid.txt && [ "$tier" = quick ]; then
-    # the flagged harnesses may belong to the thorough tier only (larger bounds, slow ones)
-    (cd $V && VERIF_ONLY="$hits" python3 check.py $pid --tier thorough > $out/check_${pid}_thorough.txt 2>$out/check_${pid}_thorough.err; echo "exit=$? (tier thorough, restricted to the harnesses the native sweep flagged: $hits)" >> $out/check_${pid}_thorough.txt)
-    if grep -q "^VIOLATION" $out/check_${pid}_thorough.txt; then cp $out/check_${pid}_thorough.txt $out/check_$pid.txt; fi
-  fi
-fi
-if [ -z "$hits" ] || { ! grep -q "^VIOLATION" $out/check_$pid.txt && grep -q "no obligation was generated" $out/check_$pid.txt; }; then
-  (cd $V && python3 check.py $pid --tier $tier > $out/check_$pid.txt 2>$out/check_$pid.err; echo "exit=$? (tier $tier, full check; native sweep flagged nothing the restricted runs could decide)" >> $out/check_$pid.txt)
-fi
-oif [ -n "$hits" ]; then
-  (cd $V && VERIF_ONLY="$hits" python3 check.py $pid --tier $tier > $out/check_$pid.txt 2>$out/check_$pid.err; echo "exit=$? (tier $tier, restricted to the harnesses the native sweep flagged: $hits)" >> $out/check_$pid.txt)
-  if ! grep -q "^VIOLATION" $out/check_$pid.txt && [ "$tier" = quick ]; then
-    # the flagged harnesses may belong to the thorough tier only (larger bounds, slow ones)
-    (cd $V && VERIF_ONLY="$hits" python3 check.py $pid --tier thorough > $out/check_${pid}_thorough.txt 2>$out/check_${pid}_thorough.err; echo "exit=$? (tier thorough, restricted to the harnesses the native sweep flagged: $hits)" >> $out/check_${pid}_thorough.txt)
-    if grep -q "^VIOLATION" $out/check_${pid}_thorough.txt; then cp $out/check_${pid}_thorough.txt $out/check_$pid.txt; fi
-  fi
-fi
-if [ -z "$hits" ] || { ! grep -q "^VIOLATION" $out/check_$pid.txt && grep -q "no obligation was generated" $out/check_$pid.txt; }; then
-  (cd $V && python3 check.py $pid --tier $tier > $out/check_$pid.txt 2>$out/check_$pid.err; echo "exit=$? (tier $tier, full check; native sweep flagged nothing the restricted runs could decide)" >> $out/check_$pid.txt)
-fi
-uif [ -n "$hits" ]; then
-  (cd $V && VERIF_ONLY="$hits" python3 check.py $pid --tier $tier > $out/check_$pid.txt 2>$out/check_$pid.err; echo "exit=$? (tier $tier, restricted to the harnesses the native sweep flagged: $hits)" >> $out/check_$pid.txt)
-  if ! grep -q "^VIOLATION" $out/check_$pid.txt && [ "$tier" = quick ]; then
-    # the flagged harnesses may belong to the thorough tier only (larger bounds, slow ones)
-    (cd $V && VERIF_ONLY="$hits" python3 check.py $pid --tier thorough > $out/check_${pid}_thorough.txt 2>$out/check_${pid}_thorough.err; echo "exit=$? (tier thorough, restricted to the harnesses the native sweep flagged: $hits)" >> $out/check_${pid}_thorough.txt)
-    if grep -q "^VIOLATION" $out/check_${pid}_thorough.txt; then cp $out/check_${pid}_thorough.txt $out/check_$pid.txt; fi
-  fi
-fi
-if [ -z "$hits" ] || { ! grep -q "^VIOLATION" $out/check_$pid.txt && grep -q "no obligation was generated" $out/check_$pid.txt; }; then
-  (cd $V && python3 check.py $pid --tier $tier > $out/check_$pid.txt 2>$out/check_$pid.err; echo "exit=$? (tier $tier, full check; native sweep flagged nothing the restricted runs could decide)" >> $out/check_$pid.txt)
-fi
-tif [ -n "$hits" ]; then
-  (cd $V && VERIF_ONLY="$hits" python3 check.py $pid --tier $tier > $out/check_$pid.txt 2>$out/check_$pid.err; echo "exit=$? (tier $tier, restricted to the harnesses the native sweep flagged: $hits)" >> $out/check_$pid.txt)
-  if ! grep -q "^VIOLATION" $out/check_$pid.txt && [ "$tier" = quick ]; then
-    # the flagged harnesses may belong to the thorough tier only (larger bounds, slow ones)
-    (cd $V && VERIF_ONLY="$hits" python3 check.py $pid --tier thorough > $out/check_${pid}_thorough.txt 2>$out/check_${pid}_thorough.err; echo "exit=$? (tier thorough, restricted to the harnesses the native sweep flagged: $hits)" >> $out/check_${pid}_thorough.txt)
-    if grep -q "^VIOLATION" $out/check_${pid}_thorough.txt; then cp $out/check_${pid}_thorough.txt $out/check_$pid.txt; fi
-  fi
-fi
-if [ -z "$hits" ] || { ! grep -q "^VIOLATION" $out/check_$pid.txt && grep -q "no obligation was generated" $out/check_$pid.txt; }; then
-  (cd $V && python3 check.py $pid --tier $tier > $out/check_$pid.txt 2>$out/check_$pid.err; echo "exit=$? (tier $tier, full check; native sweep flagged nothing the restricted runs could decide)" >> $out/check_$pid.txt)
-fi
-/if [ -n "$hits" ]; then
-  (cd $V && VERIF_ONLY="$hits" python3 check.py $pid --tier $tier > $out/check_$pid.txt 2>$out/check_$pid.err; echo "exit=$? (tier $tier, restricted to the harnesses the native sweep flagged: $hits)" >> $out/check_$pid.txt)
-  if ! grep -q "^VIOLATION" $out/check_$pid.txt && [ "$tier" = quick ]; then
-    # the flagged harnesses may belong to the thorough tier only (larger bounds, slow ones)
-    (cd $V && VERIF_ONLY="$hits" python3 check.py $pid --tier thorough > $out/check_${pid}_thorough.txt 2>$out/check_${pid}_thorough.err; echo "exit=$? (tier thorough, restricted to the harnesses the native sweep flagged: $hits)" >> $out/check_${pid}_thorough.txt)
-    if grep -q "^VIOLATION" $out/check_${pid}_thorough.txt; then cp $out/check_${pid}_thorough.txt $out/check_$pid.txt; fi
-  fi
-fi
-if [ -z "$hits" ] || { ! grep -q "^VIOLATION" $out/check_$pid.txt && grep -q "no obligation was generated" $out/check_$pid.txt; }; then
-  (cd $V && python3 check.py $pid --tier $tier > $out/check_$pid.txt 2>$out/check_$pid.err; echo "exit=$? (tier $tier, full check; native sweep flagged nothing the restricted runs could decide)" >> $out/check_$pid.txt)
-fi
-cif [ -n "$hits" ]; then
-  (cd $V && VERIF_ONLY="$hits" python3 check.py $pid --tier $tier > $out/check_$pid.txt 2>$out/check_$pid.err; echo "exit=$? (tier $tier, restricted to the harnesses the native sweep flagged: $hits)" >> $out/check_$pid.txt)
-  if ! grep -q "^VIOLATION" $out/check_$pid.txt && [ "$tier" = quick ]; then
-    # the flagged harnesses may belong to the thorough tier only (larger bounds, slow ones)
-    (cd $V && VERIF_ONLY="$hits" python3 check.py $pid --tier thorough > $out/check_${pid}_thorough.txt 2>$out/check_${pid}_thorough.err; echo "exit=$? (tier thorough, restricted to the harnesses the native sweep flagged: $hits)" >> $out/check_${pid}_thorough.txt)
-    if grep -q "^VIOLATION" $out/check_${pid}_thorough.txt; then cp $out/check_${pid}_thorough.txt $out/check_$pid.txt; fi
-  fi
-fi
-if [ -z "$hits" ] || { ! grep -q "^VIOLATION" $out/check_$pid.txt && grep -q "no obligation was generated" $out/check_$pid.txt; }; then
-  (cd $V && python3 check.py $pid --tier $tier > $out/check_$pid.txt 2>$out/check_$pid.err; echo "exit=$? (tier $tier, full check; native sweep flagged nothing the restricted runs could decide)" >> $out/check_$pid.txt)
-fi
-hif [ -n "$hits" ]; then
-  (cd $V && VERIF_ONLY="$hits" python3 check.py $pid --tier $tier > $out/check_$pid.txt 2>$out/check_$pid.err; echo "exit=$? (tier $tier, restricted to the harnesses the native sweep flagged: $hits)" >> $out/check_$pid.txt)
-  if ! grep -q "^VIOLATION" $out/check_$pid.txt && [ "$tier" = quick ]; then
-    # the flagged harnesses may belong to the thorough tier only (larger bounds, slow ones)
-    (cd $V && VERIF_ONLY="$hits" python3 check.py $pid --tier thorough > $out/check_${pid}_thorough.txt 2>$out/check_${pid}_thorough.err; echo "exit=$? (tier thorough, restricted to the harnesses the native sweep flagged: $hits)" >> $out/check_${pid}_thorough.txt)
-    if grep -q "^VIOLATION" $out/check_${pid}_thorough.txt; then cp $out/check_${pid}_thorough.txt $out/check_$pid.txt; fi
-  fi
-fi
-if [ -z "$hits" ] || { ! grep -q "^VIOLATION" $out/check_$pid.txt && grep -q "no obligation was generated" $out/check_$pid.txt; }; then
-  (cd $V && python3 check.py $pid --tier $tier > $out/check_$pid.txt 2>$out/check_$pid.err; echo "exit=$? (tier $tier, full check; native sweep flagged nothing the restricted runs could decide)" >> $out/check_$pid.txt)
-fi
-eif [ -n "$hits" ]; then
-  (cd $V && VERIF_ONLY="$hits" python3 check.py $pid --tier $tier > $out/check_$pid.txt 2>$out/check_$pid.err; echo "exit=$? (tier $tier, restricted to the harnesses the native sweep flagged: $hits)" >> $out/check_$pid.txt)
-  if ! grep -q "^VIOLATION" $out/check_$pid.txt && [ "$tier" = quick ]; then
-    # the flagged harnesses may belong to the thorough tier only (larger bounds, slow ones)
-    (cd $V && VERIF_ONLY="$hits" python3 check.py $pid --tier thorough > $out/check_${pid}_thorough.txt 2>$out/check_${pid}_thorough.err; echo "exit=$? (tier thorough, restricted to the harnesses the native sweep flagged: $hits)" >> $out/check_${pid}_thorough.txt)
-    if grep -q "^VIOLATION" $out/check_${pid}_thorough.txt; then cp $out/check_${pid}_thorough.txt $out/check_$pid.txt; fi
-  fi
-fi
-if [ -z "$hits" ] || { ! grep -q "^VIOLATION" $out/check_$pid.txt && grep -q "no obligation was generated" $out/check_$pid.txt; }; then
-  (cd $V && python3 check.py $pid --tier $tier > $out/check_$pid.txt 2>$out/check_$pid.err; echo "exit=$? (tier $tier, full check; native sweep flagged nothing the restricted runs could decide)" >> $out/check_$pid.txt)
-fi
-cif [ -n "$hits" ]; then
-  (cd $V && VERIF_ONLY="$hits" python3 check.py $pid --tier $tier > $out/check_$pid.txt 2>$out/check_$pid.err; echo "exit=$? (tier $tier, restricted to the harnesses the native sweep flagged: $hits)" >> $out/check_$pid.txt)
-  if ! grep -q "^VIOLATION" $out/check_$pid.txt && [ "$tier" = quick ]; then
-    # the flagged harnesses may belong to the thorough tier only (larger bounds, slow ones)
-    (cd $V && VERIF_ONLY="$hits" python3 check.py $pid --tier thorough > $out/check_${pid}_thorough.txt 2>$out/check_${pid}_thorough.err; echo "exit=$? (tier thorough, restricted to the harnesses the native sweep flagged: $hits)" >> $out/check_${pid}_thorough.txt)
-    if grep -q "^VIOLATION" $out/check_${pid}_thorough.txt; then cp $out/check_${pid}_thorough.txt $out/check_$pid.txt; fi
-  fi
-fi
-if [ -z "$hits" ] || { ! grep -q "^VIOLATION" $out/check_$pid.txt && grep -q "no obligation was generated" $out/check_$pid.txt; }; then
-  (cd $V && python3 check.py $pid --tier $tier > $out/check_$pid.txt 2>$out/check_$pid.err; echo "exit=$? (tier $tier, full check; native sweep flagged nothing the restricted runs could decide)" >> $out/check_$pid.txt)
-fi
-kif [ -n "$hits" ]; then
-  (cd $V && VERIF_ONLY="$hits" python3 check.py $pid --tier $tier > $out/check_$pid.txt 2>$out/check_$pid.err; echo "exit=$? (tier $tier, restricted to the harnesses the native sweep flagged: $hits)" >> $out/check_$pid.txt)
-  if ! grep -q "^VIOLATION" $out/check_$pid.txt && [ "$tier" = quick ]; then
-    # the flagged harnesses may belong to the thorough tier only (larger bounds, slow ones)
-    (cd $V && VERIF_ONLY="$hits" python3 check.py $pid --tier thorough > $out/check_${pid}_thorough.txt 2>$out/check_${pid}_thorough.err; echo "exit=$? (tier thorough, restricted to the harnesses the native sweep flagged: $hits)" >> $out/check_${pid}_thorough.txt)
-    if grep -q "^VIOLATION" $out/check_${pid}_thorough.txt; then cp $out/check_${pid}_thorough.txt $out/check_$pid.txt; fi
-  fi
-fi
-if [ -z "$hits" ] || { ! grep -q "^VIOLATION" $out/check_$pid.txt && grep -q "no obligation was generated" $out/check_$pid.txt; }; then
-  (cd $V && python3 check.py $pid --tier $tier > $out/check_$pid.txt 2>$out/check_$pid.err; echo "exit=$? (tier $tier, full check; native sweep flagged nothing the restricted runs could decide)" >> $out/check_$pid.txt)
-fi
-_if [ -n "$hits" ]; then
-  (cd $V && VERIF_ONLY="$hits" python3 check.py $pid --tier $tier > $out/check_$pid.txt 2>$out/check_$pid.err; echo "exit=$? (tier $tier, restricted to the harnesses the native sweep flagged: $hits)" >> $out/check_$pid.txt)
-  if ! grep -q "^VIOLATION" $out/check_$pid.txt && [ "$tier" = quick ]; then
-    # the flagged harnesses may belong to the thorough tier only (larger bounds, slow ones)
-    (cd $V && VERIF_ONLY="$hits" python3 check.py $pid --tier thorough > $out/check_${pid}_thorough.txt 2>$out/check_${pid}_thorough.err; echo "exit=$? (tier thorough, restricted to the harnesses the native sweep flagged: $hits)" >> $out/check_${pid}_thorough.txt)
-    if grep -q "^VIOLATION" $out/check_${pid}_thorough.txt; then cp $out/check_${pid}_thorough.txt $out/check_$pid.txt; fi
-  fi
-fi
-if [ -z "$hits" ] || { ! grep -q "^VIOLATION" $out/check_$pid.txt && grep -q "no obligation was generated" $out/check_$pid.txt; }; then
-  (cd $V && python3 check.py $pid --tier $tier > $out/check_$pid.txt 2>$out/check_$pid.err; echo "exit=$? (tier $tier, full check; native sweep flagged nothing the restricted runs could decide)" >> $out/check_$pid.txt)
-fi
-$if [ -n "$hits" ]; then
-  (cd $V && VERIF_ONLY="$hits" python3 check.py $pid --tier $tier > $out/check_$pid.txt 2>$out/check_$pid.err; echo "exit=$? (tier $tier, restricted to the harnesses the native sweep flagged: $hits)" >> $out/check_$pid.txt)
-  if ! grep -q "^VIOLATION" $out/check_$pid.txt && [ "$tier" = quick ]; then
-    # the flagged harnesses may belong to the thorough tier only (larger bounds, slow ones)
-    (cd $V && VERIF_ONLY="$hits" python3 check.py $pid --tier thorough > $out/check_${pid}_thorough.txt 2>$out/check_${pid}_thorough.err; echo "exit=$? (tier thorough, restricted to the harnesses the native sweep flagged: $hits)" >> $out/check_${pid}_thorough.txt)
-    if grep -q "^VIOLATION" $out/check_${pid}_thorough.txt; then cp $out/check_${pid}_thorough.txt $out/check_$pid.txt; fi
-  fi
-fi
-if [ -z "$hits" ] || { ! grep -q "^VIOLATION" $out/check_$pid.txt && grep -q "no obligation was generated" $out/check_$pid.txt; }; then
-  (cd $V && python3 check.py $pid --tier $tier > $out/check_$pid.txt 2>$out/check_$pid.err; echo "exit=$? (tier $tier, full check; native sweep flagged nothing the restricted runs could decide)" >> $out/check_$pid.txt)
-fi
-pif [ -n "$hits" ]; then
-  (cd $V && VERIF_ONLY="$hits" python3 check.py $pid --tier $tier > $out/check_$pid.txt 2>$out/check_$pid.err; echo "exit=$? (tier $tier, restricted to the harnesses the native sweep flagged: $hits)" >> $out/check_$pid.txt)
-  if ! grep -q "^VIOLATION" $out/check_$pid.txt && [ "$tier" = quick ]; then
-    # the flagged harnesses may belong to the thorough tier only (larger bounds, slow ones)
-    (cd $V && VERIF_ONLY="$hits" python3 check.py $pid --tier thorough > $out/check_${pid}_thorough.txt 2>$out/check_${pid}_thorough.err; echo "exit=$? (tier thorough, restricted to the harnesses the native sweep flagged: $hits)" >> $out/check_${pid}_thorough.txt)
-    if grep -q "^VIOLATION" $out/check_${pid}_thorough.txt; then cp $out/check_${pid}_thorough.txt $out/check_$pid.txt; fi
-  fi
-fi
-if [ -z "$hits" ] || { ! grep -q "^VIOLATION" $out/check_$pid.txt && grep -q "no obligation was generated" $out/check_$pid.txt; }; then
-  (cd $V && python3 check.py $pid --tier $tier > $out/check_$pid.txt 2>$out/check_$pid.err; echo "exit=$? (tier $tier, full check; native sweep flagged nothing the restricted runs could decide)" >> $out/check_$pid.txt)
-fi
-iif [ -n "$hits" ]; then
-  (cd $V && VERIF_ONLY="$hits" python3 check.py $pid --tier $tier > $out/check_$pid.txt 2>$out/check_$pid.err; echo "exit=$? (tier $tier, restricted to the harnesses the native sweep flagged: $hits)" >> $out/check_$pid.txt)
-  if ! grep -q "^VIOLATION" $out/check_$pid.txt && [ "$tier" = quick ]; then
-    # the flagged harnesses may belong to the thorough tier only (larger bounds, slow ones)
-    (cd $V && VERIF_ONLY="$hits" python3 check.py $pid --tier thorough > $out/check_${pid}_thorough.txt 2>$out/check_${pid}_thorough.err; echo "exit=$? (tier thorough, restricted to the harnesses the native sweep flagged: $hits)" >> $out/check_${pid}_thorough.txt)
-    if grep -q "^VIOLATION" $out/check_${pid}_thorough.txt; then cp $out/check_${pid}_thorough.txt $out/check_$pid.txt; fi
-  fi
-fi
-if [ -z "$hits" ] || { ! grep -q "^VIOLATION" $out/check_$pid.txt && grep -q "no obligation was generated" $out/check_$pid.txt; }; then
-  (cd $V && python3 check.py $pid --tier $tier > $out/check_$pid.txt 2>$out/check_$pid.err; echo "exit=$? (tier $tier, full check; native sweep flagged nothing the restricted runs could decide)" >> $out/check_$pid.txt)
-fi
-dif [ -n "$hits" ]; then
-  (cd $V && VERIF_ONLY="$hits" python3 check.py $pid --tier $tier > $out/check_$pid.txt 2>$out/check_$pid.err; echo "exit=$? (tier $tier, restricted to the harnesses the native sweep flagged: $hits)" >> $out/check_$pid.txt)
-  if ! grep -q "^VIOLATION" $out/check_$pid.txt && [ "$tier" = quick ]; then
-    # the flagged harnesses may belong to the thorough tier only (larger bounds, slow ones)
-    (cd $V && VERIF_ONLY="$hits" python3 check.py $pid --tier thorough > $out/check_${pid}_thorough.txt 2>$out/check_${pid}_thorough.err; echo "exit=$? (tier thorough, restricted to the harnesses the native sweep flagged: $hits)" >> $out/check_${pid}_thorough.txt)
-    if grep -q "^VIOLATION" $out/check_${pid}_thorough.txt; then cp $out/check_${pid}_thorough.txt $out/check_$pid.txt; fi
-  fi
-fi
-if [ -z "$hits" ] || { ! grep -q "^VIOLATION" $out/check_$pid.txt && grep -q "no obligation was generated" $out/check_$pid.txt; }; then
-  (cd $V && python3 check.py $pid --tier $tier > $out/check_$pid.txt 2>$out/check_$pid.err; echo "exit=$? (tier $tier, full check; native sweep flagged nothing the restricted runs could decide)" >> $out/check_$pid.txt)
-fi
-.if [ -n "$hits" ]; then
-  (cd $V && VERIF_ONLY="$hits" python3 check.py $pid --tier $tier > $out/check_$pid.txt 2>$out/check_$pid.err; echo "exit=$? (tier $tier, restricted to the harnesses the native sweep flagged: $hits)" >> $out/check_$pid.txt)
-  if ! grep -q "^VIOLATION" $out/check_$pid.txt && [ "$tier" = quick ]; then
-    # the flagged harnesses may belong to the thorough tier only (larger bounds, slow ones)
-    (cd $V && VERIF_ONLY="$hits" python3 check.py $pid --tier thorough > $out/check_${pid}_thorough.txt 2>$out/check_${pid}_thorough.err; echo "exit=$? (tier thorough, restricted to the harnesses the native sweep flagged: $hits)" >> $out/check_${pid}_thorough.txt)
-    if grep -q "^VIOLATION" $out/check_${pid}_thorough.txt; then cp $out/check_${pid}_thorough.txt $out/check_$pid.txt; fi
-  fi
-fi
-if [ -z "$hits" ] || { ! grep -q "^VIOLATION" $out/check_$pid.txt && grep -q "no obligation was generated" $out/check_$pid.txt; }; then
-  (cd $V && python3 check.py $pid --tier $tier > $out/check_$pid.txt 2>$out/check_$pid.err; echo "exit=$? (tier $tier, full check; native sweep flagged nothing the restricted runs could decide)" >> $out/check_$pid.txt)
-fi
-eif [ -n "$hits" ]; then
-  (cd $V && VERIF_ONLY="$hits" python3 check.py $pid --tier $tier > $out/check_$pid.txt 2>$out/check_$pid.err; echo "exit=$? (tier $tier, restricted to the harnesses the native sweep flagged: $hits)" >> $out/check_$pid.txt)
-  if ! grep -q "^VIOLATION" $out/check_$pid.txt && [ "$tier" = quick ]; then
-    # the flagged harnesses may belong to the thorough tier only (larger bounds, slow ones)
-    (cd $V && VERIF_ONLY="$hits" python3 check.py $pid --tier thorough > $out/check_${pid}_thorough.txt 2>$out/check_${pid}_thorough.err; echo "exit=$? (tier thorough, restricted to the harnesses the native sweep flagged: $hits)" >> $out/check_${pid}_thorough.txt)
-    if grep -q "^VIOLATION" $out/check_${pid}_thorough.txt; then cp $out/check_${pid}_thorough.txt $out/check_$pid.txt; fi
-  fi
-fi
-if [ -z "$hits" ] || { ! grep -q "^VIOLATION" $out/check_$pid.txt && grep -q "no obligation was generated" $out/check_$pid.txt; }; then
-  (cd $V && python3 check.py $pid --tier $tier > $out/check_$pid.txt 2>$out/check_$pid.err; echo "exit=$? (tier $tier, full check; native sweep flagged nothing the restricted runs could decide)" >> $out/check_$pid.txt)
-fi
-rif [ -n "$hits" ]; then
-  (cd $V && VERIF_ONLY="$hits" python3 check.py $pid --tier $tier > $out/check_$pid.txt 2>$out/check_$pid.err; echo "exit=$? (tier $tier, restricted to the harnesses the native sweep flagged: $hits)" >> $out/check_$pid.txt)
-  if ! grep -q "^VIOLATION" $out/check_$pid.txt && [ "$tier" = quick ]; then
-    # the flagged harnesses may belong to the thorough tier only (larger bounds, slow ones)
-    (cd $V && VERIF_ONLY="$hits" python3 check.py $pid --tier thorough > $out/check_${pid}_thorough.txt 2>$out/check_${pid}_thorough.err; echo "exit=$? (tier thorough, restricted to the harnesses the native sweep flagged: $hits)" >> $out/check_${pid}_thorough.txt)
-    if grep -q "^VIOLATION" $out/check_${pid}_thorough.txt; then cp $out/check_${pid}_thorough.txt $out/check_$pid.txt; fi
-  fi
-fi
-if [ -z "$hits" ] || { ! grep -q "^VIOLATION" $out/check_$pid.txt && grep -q "no obligation was generated" $out/check_$pid.txt; }; then
-  (cd $V && python3 check.py $pid --tier $tier > $out/check_$pid.txt 2>$out/check_$pid.err; echo "exit=$? (tier $tier, full check; native sweep flagged nothing the restricted runs could decide)" >> $out/check_$pid.txt)
-fi
-rif [ -n "$hits" ]; then
-  (cd $V && VERIF_ONLY="$hits" python3 check.py $pid --tier $tier > $out/check_$pid.txt 2>$out/check_$pid.err; echo "exit=$? (tier $tier, restricted to the harnesses the native sweep flagged: $hits)" >> $out/check_$pid.txt)
-  if ! grep -q "^VIOLATION" $out/check_$pid.txt && [ "$tier" = quick ]; then
-    # the flagged harnesses may belong to the thorough tier only (larger bounds, slow ones)
-    (cd $V && VERIF_ONLY="$hits" python3 check.py $pid --tier thorough > $out/check_${pid}_thorough.txt 2>$out/check_${pid}_thorough.err; echo "exit=$? (tier thorough, restricted to the harnesses the native sweep flagged: $hits)" >> $out/check_${pid}_thorough.txt)
-    if grep -q "^VIOLATION" $out/check_${pid}_thorough.txt; then cp $out/check_${pid}_thorough.txt $out/check_$pid.txt; fi
-  fi
-fi
-if [ -z "$hits" ] || { ! grep -q "^VIOLATION" $out/check_$pid.txt && grep -q "no obligation was generated" $out/check_$pid.txt; }; then
-  (cd $V && python3 check.py $pid --tier $tier > $out/check_$pid.txt 2>$out/check_$pid.err; echo "exit=$? (tier $tier, full check; native sweep flagged nothing the restricted runs could decide)" >> $out/check_$pid.txt)
-fi
-;if [ -n "$hits" ]; then
-  (cd $V && VERIF_ONLY="$hits" python3 check.py $pid --tier $tier > $out/check_$pid.txt 2>$out/check_$pid.err; echo "exit=$? (tier $tier, restricted to the harnesses the native sweep flagged: $hits)" >> $out/check_$pid.txt)
-  if ! grep -q "^VIOLATION" $out/check_$pid.txt && [ "$tier" = quick ]; then
-    # the flagged harnesses may belong to the thorough tier only (larger bounds, slow ones)
-    (cd $V && VERIF_ONLY="$hits" python3 check.py $pid --tier thorough > $out/check_${pid}_thorough.txt 2>$out/check_${pid}_thorough.err; echo "exit=$? (tier thorough, restricted to the harnesses the native sweep flagged: $hits)" >> $out/check_${pid}_thorough.txt)
-    if grep -q "^VIOLATION" $out/check_${pid}_thorough.txt; then cp $out/check_${pid}_thorough.txt $out/check_$pid.txt; fi
-  fi
-fi
-if [ -z "$hits" ] || { ! grep -q "^VIOLATION" $out/check_$pid.txt && grep -q "no obligation was generated" $out/check_$pid.txt; }; then
-  (cd $V && python3 check.py $pid --tier $tier > $out/check_$pid.txt 2>$out/check_$pid.err; echo "exit=$? (tier $tier, full check; native sweep flagged nothing the restricted runs could decide)" >> $out/check_$pid.txt)
-fi
- if [ -n "$hits" ]; then
-  (cd $V && VERIF_ONLY="$hits" python3 check.py $pid --tier $tier > $out/check_$pid.txt 2>$out/check_$pid.err; echo "exit=$? (tier $tier, restricted to the harnesses the native sweep flagged: $hits)" >> $out/check_$pid.txt)
-  if ! grep -q "^VIOLATION" $out/check_$pid.txt && [ "$tier" = quick ]; then
-    # the flagged harnesses may belong to the thorough tier only (larger bounds, slow ones)
-    (cd $V && VERIF_ONLY="$hits" python3 check.py $pid --tier thorough > $out/check_${pid}_thorough.txt 2>$out/check_${pid}_thorough.err; echo "exit=$? (tier thorough, restricted to the harnesses the native sweep flagged: $hits)" >> $out/check_${pid}_thorough.txt)
-    if grep -q "^VIOLATION" $out/check_${pid}_thorough.txt; then cp $out/check_${pid}_thorough.txt $out/check_$pid.txt; fi
-  fi
-fi
-if [ -z "$hits" ] || { ! grep -q "^VIOLATION" $out/check_$pid.txt && grep -q "no obligation was generated" $out/check_$pid.txt; }; then
-  (cd $V && python3 check.py $pid --tier $tier > $out/check_$pid.txt 2>$out/check_$pid.err; echo "exit=$? (tier $tier, full check; native sweep flagged nothing the restricted runs could decide)" >> $out/check_$pid.txt)
-fi
-eif [ -n "$hits" ]; then
-  (cd $V && VERIF_ONLY="$hits" python3 check.py $pid --tier $tier > $out/check_$pid.txt 2>$out/check_$pid.err; echo "exit=$? (tier $tier, restricted to the harnesses the native sweep flagged: $hits)" >> $out/check_$pid.txt)
-  if ! grep -q "^VIOLATION" $out/check_$pid.txt && [ "$tier" = quick ]; then
-    # the flagged harnesses may belong to the thorough tier only (larger bounds, slow ones)
-    (cd $V && VERIF_ONLY="$hits" python3 check.py $pid --tier thorough > $out/check_${pid}_thorough.txt 2>$out/check_${pid}_thorough.err; echo "exit=$? (tier thorough, restricted to the harnesses the native sweep flagged: $hits)" >> $out/check_${pid}_thorough.txt)
-    if grep -q "^VIOLATION" $out/check_${pid}_thorough.txt; then cp $out/check_${pid}_thorough.txt $out/check_$pid.txt; fi
-  fi
-fi
-if [ -z "$hits" ] || { ! grep -q "^VIOLATION" $out/check_$pid.txt && grep -q "no obligation was generated" $out/check_$pid.txt; }; then
-  (cd $V && python3 check.py $pid --tier $tier > $out/check_$pid.txt 2>$out/check_$pid.err; echo "exit=$? (tier $tier, full check; native sweep flagged nothing the restricted runs could decide)" >> $out/check_$pid.txt)
-fi
-cif [ -n "$hits" ]; then
-  (cd $V && VERIF_ONLY="$hits" python3 check.py $pid --tier $tier > $out/check_$pid.txt 2>$out/check_$pid.err; echo "exit=$? (tier $tier, restricted to the harnesses the native sweep flagged: $hits)" >> $out/check_$pid.txt)
-  if ! grep -q "^VIOLATION" $out/check_$pid.txt && [ "$tier" = quick ]; then
-    # the flagged harnesses may belong to the thorough tier only (larger bounds, slow ones)
-    (cd $V && VERIF_ONLY="$hits" python3 check.py $pid --tier thorough > $out/check_${pid}_thorough.txt 2>$out/check_${pid}_thorough.err; echo "exit=$? (tier thorough, restricted to the harnesses the native sweep flagged: $hits)" >> $out/check_${pid}_thorough.txt)
-    if grep -q "^VIOLATION" $out/check_${pid}_thorough.txt; then cp $out/check_${pid}_thorough.txt $out/check_$pid.txt; fi
-  fi
-fi
-if [ -z "$hits" ] || { ! grep -q "^VIOLATION" $out/check_$pid.txt && grep -q "no obligation was generated" $out/check_$pid.txt; }; then
-  (cd $V && python3 check.py $pid --tier $tier > $out/check_$pid.txt 2>$out/check_$pid.err; echo "exit=$? (tier $tier, full check; native sweep flagged nothing the restricted runs could decide)" >> $out/check_$pid.txt)
-fi
-hif [ -n "$hits" ]; then
-  (cd $V && VERIF_ONLY="$hits" python3 check.py $pid --tier $tier > $out/check_$pid.txt 2>$out/check_$pid.err; echo "exit=$? (tier $tier, restricted to the harnesses the native sweep flagged: $hits)" >> $out/check_$pid.txt)
-  if ! grep -q "^VIOLATION" $out/check_$pid.txt && [ "$tier" = quick ]; then
-    # the flagged harnesses may belong to the thorough tier only (larger bounds, slow ones)
-    (cd $V && VERIF_ONLY="$hits" python3 check.py $pid --tier thorough > $out/check_${pid}_thorough.txt 2>$out/check_${pid}_thorough.err; echo "exit=$? (tier thorough, restricted to the harnesses the native sweep flagged: $hits)" >> $out/check_${pid}_thorough.txt)
-    if grep -q "^VIOLATION" $out/check_${pid}_thorough.txt; then cp $out/check_${pid}_thorough.txt $out/check_$pid.txt; fi
-  fi
-fi
-if [ -z "$hits" ] || { ! grep -q "^VIOLATION" $out/check_$pid.txt && grep -q "no obligation was generated" $out/check_$pid.txt; }; then
-  (cd $V && python3 check.py $pid --tier $tier > $out/check_$pid.txt 2>$out/check_$pid.err; echo "exit=$? (tier $tier, full check; native sweep flagged nothing the restricted runs could decide)" >> $out/check_$pid.txt)
-fi
-oif [ -n "$hits" ]; then
-  (cd $V && VERIF_ONLY="$hits" python3 check.py $pid --tier $tier > $out/check_$pid.txt 2>$out/check_$pid.err; echo "exit=$? (tier $tier, restricted to the harnesses the native sweep flagged: $hits)" >> $out/check_$pid.txt)
-  if ! grep -q "^VIOLATION" $out/check_$pid.txt && [ "$tier" = quick ]; then
-    # the flagged harnesses may belong to the thorough tier only (larger bounds, slow ones)
-    (cd $V && VERIF_ONLY="$hits" python3 check.py $pid --tier thorough > $out/check_${pid}_thorough.txt 2>$out/check_${pid}_thorough.err; echo "exit=$? (tier thorough, restricted to the harnesses the native sweep flagged: $hits)" >> $out/check_${pid}_thorough.txt)
-    if grep -q "^VIOLATION" $out/check_${pid}_thorough.txt; then cp $out/check_${pid}_thorough.txt $out/check_$pid.txt; fi
-  fi
-fi
-if [ -z "$hits" ] || { ! grep -q "^VIOLATION" $out/check_$pid.txt && grep -q "no obligation was generated" $out/check_$pid.txt; }; then
-  (cd $V && python3 check.py $pid --tier $tier > $out/check_$pid.txt 2>$out/check_$pid.err; echo "exit=$? (tier $tier, full check; native sweep flagged nothing the restricted runs could decide)" >> $out/check_$pid.txt)
-fi
- if [ -n "$hits" ]; then
-  (cd $V && VERIF_ONLY="$hits" python3 check.py $pid --tier $tier > $out/check_$pid.txt 2>$out/check_$pid.err; echo "exit=$? (tier $tier, restricted to the harnesses the native sweep flagged: $hits)" >> $out/check_$pid.txt)
-  if ! grep -q "^VIOLATION" $out/check_$pid.txt && [ "$tier" = quick ]; then
-    # the flagged harnesses may belong to the thorough tier only (larger bounds, slow ones)
-    (cd $V && VERIF_ONLY="$hits" python3 check.py $pid --tier thorough > $out/check_${pid}_thorough.txt 2>$out/check_${pid}_thorough.err; echo "exit=$? (tier thorough, restricted to the harnesses the native sweep flagged: $hits)" >> $out/check_${pid}_thorough.txt)
-    if grep -q "^VIOLATION" $out/check_${pid}_thorough.txt; then cp $out/check_${pid}_thorough.txt $out/check_$pid.txt; fi
-  fi
-fi
-if [ -z "$hits" ] || { ! grep -q "^VIOLATION" $out/check_$pid.txt && grep -q "no obligation was generated" $out/check_$pid.txt; }; then
-  (cd $V && python3 check.py $pid --tier $tier > $out/check_$pid.txt 2>$out/check_$pid.err; echo "exit=$? (tier $tier, full check; native sweep flagged nothing the restricted runs could decide)" >> $out/check_$pid.txt)
-fi
-"if [ -n "$hits" ]; then
-  (cd $V && VERIF_ONLY="$hits" python3 check.py $pid --tier $tier > $out/check_$pid.txt 2>$out/check_$pid.err; echo "exit=$? (tier $tier, restricted to the harnesses the native sweep flagged: $hits)" >> $out/check_$pid.txt)
-  if ! grep -q "^VIOLATION" $out/check_$pid.txt && [ "$tier" = quick ]; then
-    # the flagged harnesses may belong to the thorough tier only (larger bounds, slow ones)
-    (cd $V && VERIF_ONLY="$hits" python3 check.py $pid --tier thorough > $out/check_${pid}_thorough.txt 2>$out/check_${pid}_thorough.err; echo "exit=$? (tier thorough, restricted to the harnesses the native sweep flagged: $hits)" >> $out/check_${pid}_thorough.txt)
-    if grep -q "^VIOLATION" $out/check_${pid}_thorough.txt; then cp $out/check_${pid}_thorough.txt $out/check_$pid.txt; fi
-  fi
-fi
-if [ -z "$hits" ] || { ! grep -q "^VIOLATION" $out/check_$pid.txt && grep -q "no obligation was generated" $out/check_$pid.txt; }; then
-  (cd $V && python3 check.py $pid --tier $tier > $out/check_$pid.txt 2>$out/check_$pid.err; echo "exit=$? (tier $tier, full check; native sweep flagged nothing the restricted runs could decide)" >> $out/check_$pid.txt)
-fi
-eif [ -n "$hits" ]; then
-  (cd $V && VERIF_ONLY="$hits" python3 check.py $pid --tier $tier > $out/check_$pid.txt 2>$out/check_$pid.err; echo "exit=$? (tier $tier, restricted to the harnesses the native sweep flagged: $hits)" >> $out/check_$pid.txt)
-  if ! grep -q "^VIOLATION" $out/check_$pid.txt && [ "$tier" = quick ]; then
-    # the flagged harnesses may belong to the thorough tier only (larger bounds, slow ones)
-    (cd $V && VERIF_ONLY="$hits" python3 check.py $pid --tier thorough > $out/check_${pid}_thorough.txt 2>$out/check_${pid}_thorough.err; echo "exit=$? (tier thorough, restricted to the harnesses the native sweep flagged: $hits)" >> $out/check_${pid}_thorough.txt)
-    if grep -q "^VIOLATION" $out/check_${pid}_thorough.txt; then cp $out/check_${pid}_thorough.txt $out/check_$pid.txt; fi
-  fi
-fi
-if [ -z "$hits" ] || { ! grep -q "^VIOLATION" $out/check_$pid.txt && grep -q "no obligation was generated" $out/check_$pid.txt; }; then
-  (cd $V && python3 check.py $pid --tier $tier > $out/check_$pid.txt 2>$out/check_$pid.err; echo "exit=$? (tier $tier, full check; native sweep flagged nothing the restricted runs could decide)" >> $out/check_$pid.txt)
-fi
-xif [ -n "$hits" ]; then
-  (cd $V && VERIF_ONLY="$hits" python3 check.py $pid --tier $tier > $out/check_$pid.txt 2>$out/check_$pid.err; echo "exit=$? (tier $tier, restricted to the harnesses the native sweep flagged: $hits)" >> $out/check_$pid.txt)
-  if ! grep -q "^VIOLATION" $out/check_$pid.txt && [ "$tier" = quick ]; then
-    # the flagged harnesses may belong to the thorough tier only (larger bounds, slow ones)
-    (cd $V && VERIF_ONLY="$hits" python3 check.py $pid --tier thorough > $out/check_${pid}_thorough.txt 2>$out/check_${pid}_thorough.err; echo "exit=$? (tier thorough, restricted to the harnesses the native sweep flagged: $hits)" >> $out/check_${pid}_thorough.txt)
-    if grep -q "^VIOLATION" $out/check_${pid}_thorough.txt; then cp $out/check_${pid}_thorough.txt $out/check_$pid.txt; fi
-  fi
-fi
-if [ -z "$hits" ] || { ! grep -q "^VIOLATION" $out/check_$pid.txt && grep -q "no obligation was generated" $out/check_$pid.txt; }; then
-  (cd $V && python3 check.py $pid --tier $tier > $out/check_$pid.txt 2>$out/check_$pid.err; echo "exit=$? (tier $tier, full check; native sweep flagged nothing the restricted runs could decide)" >> $out/check_$pid.txt)
-fi
-iif [ -n "$hits" ]; then
-  (cd $V && VERIF_ONLY="$hits" python3 check.py $pid --tier $tier > $out/check_$pid.txt 2>$out/check_$pid.err; echo "exit=$? (tier $tier, restricted to the harnesses the native sweep flagged: $hits)" >> $out/check_$pid.txt)
-  if ! grep -q "^VIOLATION" $out/check_$pid.txt && [ "$tier" = quick ]; then
-    # the flagged harnesses may belong to the thorough tier only (larger bounds, slow ones)
-    (cd $V && VERIF_ONLY="$hits" python3 check.py $pid --tier thorough > $out/check_${pid}_thorough.txt 2>$out/check_${pid}_thorough.err; echo "exit=$? (tier thorough, restricted to the harnesses the native sweep flagged: $hits)" >> $out/check_${pid}_thorough.txt)
-    if grep -q "^VIOLATION" $out/check_${pid}_thorough.txt; then cp $out/check_${pid}_thorough.txt $out/check_$pid.txt; fi
-  fi
-fi
-if [ -z "$hits" ] || { ! grep -q "^VIOLATION" $out/check_$pid.txt && grep -q "no obligation was generated" $out/check_$pid.txt; }; then
-  (cd $V && python3 check.py $pid --tier $tier > $out/check_$pid.txt 2>$out/check_$pid.err; echo "exit=$? (tier $tier, full check; native sweep flagged nothing the restricted runs could decide)" >> $out/check_$pid.txt)
-fi
-tif [ -n "$hits" ]; then
-  (cd $V && VERIF_ONLY="$hits" python3 check.py $pid --tier $tier > $out/check_$pid.txt 2>$out/check_$pid.err; echo "exit=$? (tier $tier, restricted to the harnesses the native sweep flagged: $hits)" >> $out/check_$pid.txt)
-  if ! grep -q "^VIOLATION" $out/check_$pid.txt && [ "$tier" = quick ]; then
-    # the flagged harnesses may belong to the thorough tier only (larger bounds, slow ones)
-    (cd $V && VERIF_ONLY="$hits" python3 check.py $pid --tier thorough > $out/check_${pid}_thorough.txt 2>$out/check_${pid}_thorough.err; echo "exit=$? (tier thorough, restricted to the harnesses the native sweep flagged: $hits)" >> $out/check_${pid}_thorough.txt)
-    if grep -q "^VIOLATION" $out/check_${pid}_thorough.txt; then cp $out/check_${pid}_thorough.txt $out/check_$pid.txt; fi
-  fi
-fi
-if [ -z "$hits" ] || { ! grep -q "^VIOLATION" $out/check_$pid.txt && grep -q "no obligation was generated" $out/check_$pid.txt; }; then
-  (cd $V && python3 check.py $pid --tier $tier > $out/check_$pid.txt 2>$out/check_$pid.err; echo "exit=$? (tier $tier, full check; native sweep flagged nothing the restricted runs could decide)" >> $out/check_$pid.txt)
-fi
-=if [ -n "$hits" ]; then
-  (cd $V && VERIF_ONLY="$hits" python3 check.py $pid --tier $tier > $out/check_$pid.txt 2>$out/check_$pid.err; echo "exit=$? (tier $tier, restricted to the harnesses the native sweep flagged: $hits)" >> $out/check_$pid.txt)
-  if ! grep -q "^VIOLATION" $out/check_$pid.txt && [ "$tier" = quick ]; then
-    # the flagged harnesses may belong to the thorough tier only (larger bounds, slow ones)
-    (cd $V && VERIF_ONLY="$hits" python3 check.py $pid --tier thorough > $out/check_${pid}_thorough.txt 2>$out/check_${pid}_thorough.err; echo "exit=$? (tier thorough, restricted to the harnesses the native sweep flagged: $hits)" >> $out/check_${pid}_thorough.txt)
-    if grep -q "^VIOLATION" $out/check_${pid}_thorough.txt; then cp $out/check_${pid}_thorough.txt $out/check_$pid.txt; fi
-  fi
-fi
-if [ -z "$hits" ] || { ! grep -q "^VIOLATION" $out/check_$pid.txt && grep -q "no obligation was generated" $out/check_$pid.txt; }; then
-  (cd $V && python3 check.py $pid --tier $tier > $out/check_$pid.txt 2>$out/check_$pid.err; echo "exit=$? (tier $tier, full check; native sweep flagged nothing the restricted runs could decide)" >> $out/check_$pid.txt)
-fi
-$if [ -n "$hits" ]; then
-  (cd $V && VERIF_ONLY="$hits" python3 check.py $pid --tier $tier > $out/check_$pid.txt 2>$out/check_$pid.err; echo "exit=$? (tier $tier, restricted to the harnesses the native sweep flagged: $hits)" >> $out/check_$pid.txt)
-  if ! grep -q "^VIOLATION" $out/check_$pid.txt && [ "$tier" = quick ]; then
-    # the flagged harnesses may belong to the thorough tier only (larger bounds, slow ones)
-    (cd $V && VERIF_ONLY="$hits" python3 check.py $pid --tier thorough > $out/check_${pid}_thorough.txt 2>$out/check_${pid}_thorough.err; echo "exit=$? (tier thorough, restricted to the harnesses the native sweep flagged: $hits)" >> $out/check_${pid}_thorough.txt)
-    if grep -q "^VIOLATION" $out/check_${pid}_thorough.txt; then cp $out/check_${pid}_thorough.txt $out/check_$pid.txt; fi
-  fi
-fi
-if [ -z "$hits" ] || { ! grep -q "^VIOLATION" $out/check_$pid.txt && grep -q "no obligation was generated" $out/check_$pid.txt; }; then
-  (cd $V && python3 check.py $pid --tier $tier > $out/check_$pid.txt 2>$out/check_$pid.err; echo "exit=$? (tier $tier, full check; native sweep flagged nothing the restricted runs could decide)" >> $out/check_$pid.txt)
-fi
-?if [ -n "$hits" ]; then
-  (cd $V && VERIF_ONLY="$hits" python3 check.py $pid --tier $tier > $out/check_$pid.txt 2>$out/check_$pid.err; echo "exit=$? (tier $tier, restricted to the harnesses the native sweep flagged: $hits)" >> $out/check_$pid.txt)
-  if ! grep -q "^VIOLATION" $out/check_$pid.txt && [ "$tier" = quick ]; then
-    # the flagged harnesses may belong to the thorough tier only (larger bounds, slow ones)
-    (cd $V && VERIF_ONLY="$hits" python3 check.py $pid --tier thorough > $out/check_${pid}_thorough.txt 2>$out/check_${pid}_thorough.err; echo "exit=$? (tier thorough, restricted to the harnesses the native sweep flagged: $hits)" >> $out/check_${pid}_thorough.txt)
-    if grep -q "^VIOLATION" $out/check_${pid}_thorough.txt; then cp $out/check_${pid}_thorough.txt $out/check_$pid.txt; fi
-  fi
-fi
-if [ -z "$hits" ] || { ! grep -q "^VIOLATION" $out/check_$pid.txt && grep -q "no obligation was generated" $out/check_$pid.txt; }; then
-  (cd $V && python3 check.py $pid --tier $tier > $out/check_$pid.txt 2>$out/check_$pid.err; echo "exit=$? (tier $tier, full check; native sweep flagged nothing the restricted runs could decide)" >> $out/check_$pid.txt)
-fi
- if [ -n "$hits" ]; then
-  (cd $V && VERIF_ONLY="$hits" python3 check.py $pid --tier $tier > $out/check_$pid.txt 2>$out/check_$pid.err; echo "exit=$? (tier $tier, restricted to the harnesses the native sweep flagged: $hits)" >> $out/check_$pid.txt)
-  if ! grep -q "^VIOLATION" $out/check_$pid.txt && [ "$tier" = quick ]; then
-    # the flagged harnesses may belong to the thorough tier only (larger bounds, slow ones)
-    (cd $V && VERIF_ONLY="$hits" python3 check.py $pid --tier thorough > $out/check_${pid}_thorough.txt 2>$out/check_${pid}_thorough.err; echo "exit=$? (tier thorough, restricted to the harnesses the native sweep flagged: $hits)" >> $out/check_${pid}_thorough.txt)
-    if grep -q "^VIOLATION" $out/check_${pid}_thorough.txt; then cp $out/check_${pid}_thorough.txt $out/check_$pid.txt; fi
-  fi
-fi
-if [ -z "$hits" ] || { ! grep -q "^VIOLATION" $out/check_$pid.txt && grep -q "no obligation was generated" $out/check_$pid.txt; }; then
-  (cd $V && python3 check.py $pid --tier $tier > $out/check_$pid.txt 2>$out/check_$pid.err; echo "exit=$? (tier $tier, full check; native sweep flagged nothing the restricted runs could decide)" >> $out/check_$pid.txt)
-fi
-(if [ -n "$hits" ]; then
-  (cd $V && VERIF_ONLY="$hits" python3 check.py $pid --tier $tier > $out/check_$pid.txt 2>$out/check_$pid.err; echo "exit=$? (tier $tier, restricted to the harnesses the native sweep flagged: $hits)" >> $out/check_$pid.txt)
-  if ! grep -q "^VIOLATION" $out/check_$pid.txt && [ "$tier" = quick ]; then
-    # the flagged harnesses may belong to the thorough tier only (larger bounds, slow ones)
-    (cd $V && VERIF_ONLY="$hits" python3 check.py $pid --tier thorough > $out/check_${pid}_thorough.txt 2>$out/check_${pid}_thorough.err; echo "exit=$? (tier thorough, restricted to the harnesses the native sweep flagged: $hits)" >> $out/check_${pid}_thorough.txt)
-    if grep -q "^VIOLATION" $out/check_${pid}_thorough.txt; then cp $out/check_${pid}_thorough.txt $out/check_$pid.txt; fi
-  fi
-fi
-if [ -z "$hits" ] || { ! grep -q "^VIOLATION" $out/check_$pid.txt && grep -q "no obligation was generated" $out/check_$pid.txt; }; then
-  (cd $V && python3 check.py $pid --tier $tier > $out/check_$pid.txt 2>$out/check_$pid.err; echo "exit=$? (tier $tier, full check; native sweep flagged nothing the restricted runs could decide)" >> $out/check_$pid.txt)
-fi
-fif [ -n "$hits" ]; then
-  (cd $V && VERIF_ONLY="$hits" python3 check.py $pid --tier $tier > $out/check_$pid.txt 2>$out/check_$pid.err; echo "exit=$? (tier $tier, restricted to the harnesses the native sweep flagged: $hits)" >> $out/check_$pid.txt)
-  if ! grep -q "^VIOLATION" $out/check_$pid.txt && [ "$tier" = quick ]; then
-    # the flagged harnesses may belong to the thorough tier only (larger bounds, slow ones)
-    (cd $V && VERIF_ONLY="$hits" python3 check.py $pid --tier thorough > $out/check_${pid}_thorough.txt 2>$out/check_${pid}_thorough.err; echo "exit=$? (tier thorough, restricted to the harnesses the native sweep flagged: $hits)" >> $out/check_${pid}_thorough.txt)
-    if grep -q "^VIOLATION" $out/check_${pid}_thorough.txt; then cp $out/check_${pid}_thorough.txt $out/check_$pid.txt; fi
-  fi
-fi
-if [ -z "$hits" ] || { ! grep -q "^VIOLATION" $out/check_$pid.txt && grep -q "no obligation was generated" $out/check_$pid.txt; }; then
-  (cd $V && python3 check.py $pid --tier $tier > $out/check_$pid.txt 2>$out/check_$pid.err; echo "exit=$? (tier $tier, full check; native sweep flagged nothing the restricted runs could decide)" >> $out/check_$pid.txt)
-fi
-uif [ -n "$hits" ]; then
-  (cd $V && VERIF_ONLY="$hits" python3 check.py $pid --tier $tier > $out/check_$pid.txt 2>$out/check_$pid.err; echo "exit=$? (tier $tier, restricted to the harnesses the native sweep flagged: $hits)" >> $out/check_$pid.txt)
-  if ! grep -q "^VIOLATION" $out/check_$pid.txt && [ "$tier" = quick ]; then
-    # the flagged harnesses may belong to the thorough tier only (larger bounds, slow ones)
-    (cd $V && VERIF_ONLY="$hits" python3 check.py $pid --tier thorough > $out/check_${pid}_thorough.txt 2>$out/check_${pid}_thorough.err; echo "exit=$? (tier thorough, restricted to the harnesses the native sweep flagged: $hits)" >> $out/check_${pid}_thorough.txt)
-    if grep -q "^VIOLATION" $out/check_${pid}_thorough.txt; then cp $out/check_${pid}_thorough.txt $out/check_$pid.txt; fi
-  fi
-fi
-if [ -z "$hits" ] || { ! grep -q "^VIOLATION" $out/check_$pid.txt && grep -q "no obligation was generated" $out/check_$pid.txt; }; then
-  (cd $V && python3 check.py $pid --tier $tier > $out/check_$pid.txt 2>$out/check_$pid.err; echo "exit=$? (tier $tier, full check; native sweep flagged nothing the restricted runs could decide)" >> $out/check_$pid.txt)
-fi
-lif [ -n "$hits" ]; then
-  (cd $V && VERIF_ONLY="$hits" python3 check.py $pid --tier $tier > $out/check_$pid.txt 2>$out/check_$pid.err; echo "exit=$? (tier $tier, restricted to the harnesses the native sweep flagged: $hits)" >> $out/check_$pid.txt)
-  if ! grep -q "^VIOLATION" $out/check_$pid.txt && [ "$tier" = quick ]; then
-    # the flagged harnesses may belong to the thorough tier only (larger bounds, slow ones)
-    (cd $V && VERIF_ONLY="$hits" python3 check.py $pid --tier thorough > $out/check_${pid}_thorough.txt 2>$out/check_${pid}_thorough.err; echo "exit=$? (tier thorough, restricted to the harnesses the native sweep flagged: $hits)" >> $out/check_${pid}_thorough.txt)
-    if grep -q "^VIOLATION" $out/check_${pid}_thorough.txt; then cp $out/check_${pid}_thorough.txt $out/check_$pid.txt; fi
-  fi
-fi
-if [ -z "$hits" ] || { ! grep -q "^VIOLATION" $out/check_$pid.txt && grep -q "no obligation was generated" $out/check_$pid.txt; }; then
-  (cd $V && python3 check.py $pid --tier $tier > $out/check_$pid.txt 2>$out/check_$pid.err; echo "exit=$? (tier $tier, full check; native sweep flagged nothing the restricted runs could decide)" >> $out/check_$pid.txt)
-fi
-lif [ -n "$hits" ]; then
-  (cd $V && VERIF_ONLY="$hits" python3 check.py $pid --tier $tier > $out/check_$pid.txt 2>$out/check_$pid.err; echo "exit=$? (tier $tier, restricted to the harnesses the native sweep flagged: $hits)" >> $out/check_$pid.txt)
-  if ! grep -q "^VIOLATION" $out/check_$pid.txt && [ "$tier" = quick ]; then
-    # the flagged harnesses may belong to the thorough tier only (larger bounds, slow ones)
-    (cd $V && VERIF_ONLY="$hits" python3 check.py $pid --tier thorough > $out/check_${pid}_thorough.txt 2>$out/check_${pid}_thorough.err; echo "exit=$? (tier thorough, restricted to the harnesses the native sweep flagged: $hits)" >> $out/check_${pid}_thorough.txt)
-    if grep -q "^VIOLATION" $out/check_${pid}_thorough.txt; then cp $out/check_${pid}_thorough.txt $out/check_$pid.txt; fi
-  fi
-fi
-if [ -z "$hits" ] || { ! grep -q "^VIOLATION" $out/check_$pid.txt && grep -q "no obligation was generated" $out/check_$pid.txt; }; then
-  (cd $V && python3 check.py $pid --tier $tier > $out/check_$pid.txt 2>$out/check_$pid.err; echo "exit=$? (tier $tier, full check; native sweep flagged nothing the restricted runs could decide)" >> $out/check_$pid.txt)
-fi
- if [ -n "$hits" ]; then
-  (cd $V && VERIF_ONLY="$hits" python3 check.py $pid --tier $tier > $out/check_$pid.txt 2>$out/check_$pid.err; echo "exit=$? (tier $tier, restricted to the harnesses the native sweep flagged: $hits)" >> $out/check_$pid.txt)
-  if ! grep -q "^VIOLATION" $out/check_$pid.txt && [ "$tier" = quick ]; then
-    # the flagged harnesses may belong to the thorough tier only (larger bounds, slow ones)
-    (cd $V && VERIF_ONLY="$hits" python3 check.py $pid --tier thorough > $out/check_${pid}_thorough.txt 2>$out/check_${pid}_thorough.err; echo "exit=$? (tier thorough, restricted to the harnesses the native sweep flagged: $hits)" >> $out/check_${pid}_thorough.txt)
-    if grep -q "^VIOLATION" $out/check_${pid}_thorough.txt; then cp $out/check_${pid}_thorough.txt $out/check_$pid.txt; fi
-  fi
-fi
-if [ -z "$hits" ] || { ! grep -q "^VIOLATION" $out/check_$pid.txt && grep -q "no obligation was generated" $out/check_$pid.txt; }; then
-  (cd $V && python3 check.py $pid --tier $tier > $out/check_$pid.txt 2>$out/check_$pid.err; echo "exit=$? (tier $tier, full check; native sweep flagged nothing the restricted runs could decide)" >> $out/check_$pid.txt)
-fi
-cif [ -n "$hits" ]; then
-  (cd $V && VERIF_ONLY="$hits" python3 check.py $pid --tier $tier > $out/check_$pid.txt 2>$out/check_$pid.err; echo "exit=$? (tier $tier, restricted to the harnesses the native sweep flagged: $hits)" >> $out/check_$pid.txt)
-  if ! grep -q "^VIOLATION" $out/check_$pid.txt && [ "$tier" = quick ]; then
-    # the flagged harnesses may belong to the thorough tier only (larger bounds, slow ones)
-    (cd $V && VERIF_ONLY="$hits" python3 check.py $pid --tier thorough > $out/check_${pid}_thorough.txt 2>$out/check_${pid}_thorough.err; echo "exit=$? (tier thorough, restricted to the harnesses the native sweep flagged: $hits)" >> $out/check_${pid}_thorough.txt)
-    if grep -q "^VIOLATION" $out/check_${pid}_thorough.txt; then cp $out/check_${pid}_thorough.txt $out/check_$pid.txt; fi
-  fi
-fi
-if [ -z "$hits" ] || { ! grep -q "^VIOLATION" $out/check_$pid.txt && grep -q "no obligation was generated" $out/check_$pid.txt; }; then
-  (cd $V && python3 check.py $pid --tier $tier > $out/check_$pid.txt 2>$out/check_$pid.err; echo "exit=$? (tier $tier, full check; native sweep flagged nothing the restricted runs could decide)" >> $out/check_$pid.txt)
-fi
-hif [ -n "$hits" ]; then
-  (cd $V && VERIF_ONLY="$hits" python3 check.py $pid --tier $tier > $out/check_$pid.txt 2>$out/check_$pid.err; echo "exit=$? (tier $tier, restricted to the harnesses the native sweep flagged: $hits)" >> $out/check_$pid.txt)
-  if ! grep -q "^VIOLATION" $out/check_$pid.txt && [ "$tier" = quick ]; then
-    # the flagged harnesses may belong to the thorough tier only (larger bounds, slow ones)
-    (cd $V && VERIF_ONLY="$hits" python3 check.py $pid --tier thorough > $out/check_${pid}_thorough.txt 2>$out/check_${pid}_thorough.err; echo "exit=$? (tier thorough, restricted to the harnesses the native sweep flagged: $hits)" >> $out/check_${pid}_thorough.txt)
-    if grep -q "^VIOLATION" $out/check_${pid}_thorough.txt; then cp $out/check_${pid}_thorough.txt $out/check_$pid.txt; fi
-  fi
-fi
-if [ -z "$hits" ] || { ! grep -q "^VIOLATION" $out/check_$pid.txt && grep -q "no obligation was generated" $out/check_$pid.txt; }; then
-  (cd $V && python3 check.py $pid --tier $tier > $out/check_$pid.txt 2>$out/check_$pid.err; echo "exit=$? (tier $tier, full check; native sweep flagged nothing the restricted runs could decide)" >> $out/check_$pid.txt)
-fi
-eif [ -n "$hits" ]; then
-  (cd $V && VERIF_ONLY="$hits" python3 check.py $pid --tier $tier > $out/check_$pid.txt 2>$out/check_$pid.err; echo "exit=$? (tier $tier, restricted to the harnesses the native sweep flagged: $hits)" >> $out/check_$pid.txt)
-  if ! grep -q "^VIOLATION" $out/check_$pid.txt && [ "$tier" = quick ]; then
-    # the flagged harnesses may belong to the thorough tier only (larger bounds, slow ones)
-    (cd $V && VERIF_ONLY="$hits" python3 check.py $pid --tier thorough > $out/check_${pid}_thorough.txt 2>$out/check_${pid}_thorough.err; echo "exit=$? (tier thorough, restricted to the harnesses the native sweep flagged: $hits)" >> $out/check_${pid}_thorough.txt)
-    if grep -q "^VIOLATION" $out/check_${pid}_thorough.txt; then cp $out/check_${pid}_thorough.txt $out/check_$pid.txt; fi
-  fi
-fi
-if [ -z "$hits" ] || { ! grep -q "^VIOLATION" $out/check_$pid.txt && grep -q "no obligation was generated" $out/check_$pid.txt; }; then
-  (cd $V && python3 check.py $pid --tier $tier > $out/check_$pid.txt 2>$out/check_$pid.err; echo "exit=$? (tier $tier, full check; native sweep flagged nothing the restricted runs could decide)" >> $out/check_$pid.txt)
-fi
-cif [ -n "$hits" ]; then
-  (cd $V && VERIF_ONLY="$hits" python3 check.py $pid --tier $tier > $out/check_$pid.txt 2>$out/check_$pid.err; echo "exit=$? (tier $tier, restricted to the harnesses the native sweep flagged: $hits)" >> $out/check_$pid.txt)
-  if ! grep -q "^VIOLATION" $out/check_$pid.txt && [ "$tier" = quick ]; then
-    # the flagged harnesses may belong to the thorough tier only (larger bounds, slow ones)
-    (cd $V && VERIF_ONLY="$hits" python3 check.py $pid --tier thorough > $out/check_${pid}_thorough.txt 2>$out/check_${pid}_thorough.err; echo "exit=$? (tier thorough, restricted to the harnesses the native sweep flagged: $hits)" >> $out/check_${pid}_thorough.txt)
-    if grep -q "^VIOLATION" $out/check_${pid}_thorough.txt; then cp $out/check_${pid}_thorough.txt $out/check_$pid.txt; fi
-  fi
-fi
-if [ -z "$hits" ] || { ! grep -q "^VIOLATION" $out/check_$pid.txt && grep -q "no obligation was generated" $out/check_$pid.txt; }; then
-  (cd $V && python3 check.py $pid --tier $tier > $out/check_$pid.txt 2>$out/check_$pid.err; echo "exit=$? (tier $tier, full check; native sweep flagged nothing the restricted runs could decide)" >> $out/check_$pid.txt)
-fi
-kif [ -n "$hits" ]; then
-  (cd $V && VERIF_ONLY="$hits" python3 check.py $pid --tier $tier > $out/check_$pid.txt 2>$out/check_$pid.err; echo "exit=$? (tier $tier, restricted to the harnesses the native sweep flagged: $hits)" >> $out/check_$pid.txt)
-  if ! grep -q "^VIOLATION" $out/check_$pid.txt && [ "$tier" = quick ]; then
-    # the flagged harnesses may belong to the thorough tier only (larger bounds, slow ones)
-    (cd $V && VERIF_ONLY="$hits" python3 check.py $pid --tier thorough > $out/check_${pid}_thorough.txt 2>$out/check_${pid}_thorough.err; echo "exit=$? (tier thorough, restricted to the harnesses the native sweep flagged: $hits)" >> $out/check_${pid}_thorough.txt)
-    if grep -q "^VIOLATION" $out/check_${pid}_thorough.txt; then cp $out/check_${pid}_thorough.txt $out/check_$pid.txt; fi
-  fi
-fi
-if [ -z "$hits" ] || { ! grep -q "^VIOLATION" $out/check_$pid.txt && grep -q "no obligation was generated" $out/check_$pid.txt; }; then
-  (cd $V && python3 check.py $pid --tier $tier > $out/check_$pid.txt 2>$out/check_$pid.err; echo "exit=$? (tier $tier, full check; native sweep flagged nothing the restricted runs could decide)" >> $out/check_$pid.txt)
-fi
-;if [ -n "$hits" ]; then
-  (cd $V && VERIF_ONLY="$hits" python3 check.py $pid --tier $tier > $out/check_$pid.txt 2>$out/check_$pid.err; echo "exit=$? (tier $tier, restricted to the harnesses the native sweep flagged: $hits)" >> $out/check_$pid.txt)
-  if ! grep -q "^VIOLATION" $out/check_$pid.txt && [ "$tier" = quick ]; then
-    # the flagged harnesses may belong to the thorough tier only (larger bounds, slow ones)
-    (cd $V && VERIF_ONLY="$hits" python3 check.py $pid --tier thorough > $out/check_${pid}_thorough.txt 2>$out/check_${pid}_thorough.err; echo "exit=$? (tier thorough, restricted to the harnesses the native sweep flagged: $hits)" >> $out/check_${pid}_thorough.txt)
-    if grep -q "^VIOLATION" $out/check_${pid}_thorough.txt; then cp $out/check_${pid}_thorough.txt $out/check_$pid.txt; fi
-  fi
-fi
-if [ -z "$hits" ] || { ! grep -q "^VIOLATION" $out/check_$pid.txt && grep -q "no obligation was generated" $out/check_$pid.txt; }; then
-  (cd $V && python3 check.py $pid --tier $tier > $out/check_$pid.txt 2>$out/check_$pid.err; echo "exit=$? (tier $tier, full check; native sweep flagged nothing the restricted runs could decide)" >> $out/check_$pid.txt)
-fi
- if [ -n "$hits" ]; then
-  (cd $V && VERIF_ONLY="$hits" python3 check.py $pid --tier $tier > $out/check_$pid.txt 2>$out/check_$pid.err; echo "exit=$? (tier $tier, restricted to the harnesses the native sweep flagged: $hits)" >> $out/check_$pid.txt)
-  if ! grep -q "^VIOLATION" $out/check_$pid.txt && [ "$tier" = quick ]; then
-    # the flagged harnesses may belong to the thorough tier only (larger bounds, slow ones)
-    (cd $V && VERIF_ONLY="$hits" python3 check.py $pid --tier thorough > $out/check_${pid}_thorough.txt 2>$out/check_${pid}_thorough.err; echo "exit=$? (tier thorough, restricted to the harnesses the native sweep flagged: $hits)" >> $out/check_${pid}_thorough.txt)
-    if grep -q "^VIOLATION" $out/check_${pid}_thorough.txt; then cp $out/check_${pid}_thorough.txt $out/check_$pid.txt; fi
-  fi
-fi
-if [ -z "$hits" ] || { ! grep -q "^VIOLATION" $out/check_$pid.txt && grep -q "no obligation was generated" $out/check_$pid.txt; }; then
-  (cd $V && python3 check.py $pid --tier $tier > $out/check_$pid.txt 2>$out/check_$pid.err; echo "exit=$? (tier $tier, full check; native sweep flagged nothing the restricted runs could decide)" >> $out/check_$pid.txt)
-fi
-nif [ -n "$hits" ]; then
-  (cd $V && VERIF_ONLY="$hits" python3 check.py $pid --tier $tier > $out/check_$pid.txt 2>$out/check_$pid.err; echo "exit=$? (tier $tier, restricted to the harnesses the native sweep flagged: $hits)" >> $out/check_$pid.txt)
-  if ! grep -q "^VIOLATION" $out/check_$pid.txt && [ "$tier" = quick ]; then
-    # the flagged harnesses may belong to the thorough tier only (larger bounds, slow ones)
-    (cd $V && VERIF_ONLY="$hits" python3 check.py $pid --tier thorough > $out/check_${pid}_thorough.txt 2>$out/check_${pid}_thorough.err; echo "exit=$? (tier thorough, restricted to the harnesses the native sweep flagged: $hits)" >> $out/check_${pid}_thorough.txt)
-    if grep -q "^VIOLATION" $out/check_${pid}_thorough.txt; then cp $out/check_${pid}_thorough.txt $out/check_$pid.txt; fi
-  fi
-fi
-if [ -z "$hits" ] || { ! grep -q "^VIOLATION" $out/check_$pid.txt && grep -q "no obligation was generated" $out/check_$pid.txt; }; then
-  (cd $V && python3 check.py $pid --tier $tier > $out/check_$pid.txt 2>$out/check_$pid.err; echo "exit=$? (tier $tier, full check; native sweep flagged nothing the restricted runs could decide)" >> $out/check_$pid.txt)
-fi
-aif [ -n "$hits" ]; then
-  (cd $V && VERIF_ONLY="$hits" python3 check.py $pid --tier $tier > $out/check_$pid.txt 2>$out/check_$pid.err; echo "exit=$? (tier $tier, restricted to the harnesses the native sweep flagged: $hits)" >> $out/check_$pid.txt)
-  if ! grep -q "^VIOLATION" $out/check_$pid.txt && [ "$tier" = quick ]; then
-    # the flagged harnesses may belong to the thorough tier only (larger bounds, slow ones)
-    (cd $V && VERIF_ONLY="$hits" python3 check.py $pid --tier thorough > $out/check_${pid}_thorough.txt 2>$out/check_${pid}_thorough.err; echo "exit=$? (tier thorough, restricted to the harnesses the native sweep flagged: $hits)" >> $out/check_${pid}_thorough.txt)
-    if grep -q "^VIOLATION" $out/check_${pid}_thorough.txt; then cp $out/check_${pid}_thorough.txt $out/check_$pid.txt; fi
-  fi
-fi
-if [ -z "$hits" ] || { ! grep -q "^VIOLATION" $out/check_$pid.txt && grep -q "no obligation was generated" $out/check_$pid.txt; }; then
-  (cd $V && python3 check.py $pid --tier $tier > $out/check_$pid.txt 2>$out/check_$pid.err; echo "exit=$? (tier $tier, full check; native sweep flagged nothing the restricted runs could decide)" >> $out/check_$pid.txt)
-fi
-tif [ -n "$hits" ]; then
-  (cd $V && VERIF_ONLY="$hits" python3 check.py $pid --tier $tier > $out/check_$pid.txt 2>$out/check_$pid.err; echo "exit=$? (tier $tier, restricted to the harnesses the native sweep flagged: $hits)" >> $out/check_$pid.txt)
-  if ! grep -q "^VIOLATION" $out/check_$pid.txt && [ "$tier" = quick ]; then
-    # the flagged harnesses may belong to the thorough tier only (larger bounds, slow ones)
-    (cd $V && VERIF_ONLY="$hits" python3 check.py $pid --tier thorough > $out/check_${pid}_thorough.txt 2>$out/check_${pid}_thorough.err; echo "exit=$? (tier thorough, restricted to the harnesses the native sweep flagged: $hits)" >> $out/check_${pid}_thorough.txt)
-    if grep -q "^VIOLATION" $out/check_${pid}_thorough.txt; then cp $out/check_${pid}_thorough.txt $out/check_$pid.txt; fi
-  fi
-fi
-if [ -z "$hits" ] || { ! grep -q "^VIOLATION" $out/check_$pid.txt && grep -q "no obligation was generated" $out/check_$pid.txt; }; then
-  (cd $V && python3 check.py $pid --tier $tier > $out/check_$pid.txt 2>$out/check_$pid.err; echo "exit=$? (tier $tier, full check; native sweep flagged nothing the restricted runs could decide)" >> $out/check_$pid.txt)
-fi
-iif [ -n "$hits" ]; then
-  (cd $V && VERIF_ONLY="$hits" python3 check.py $pid --tier $tier > $out/check_$pid.txt 2>$out/check_$pid.err; echo "exit=$? (tier $tier, restricted to the harnesses the native sweep flagged: $hits)" >> $out/check_$pid.txt)
-  if ! grep -q "^VIOLATION" $out/check_$pid.txt && [ "$tier" = quick ]; then
-    # the flagged harnesses may belong to the thorough tier only (larger bounds, slow ones)
-    (cd $V && VERIF_ONLY="$hits" python3 check.py $pid --tier thorough > $out/check_${pid}_thorough.txt 2>$out/check_${pid}_thorough.err; echo "exit=$? (tier thorough, restricted to the harnesses the native sweep flagged: $hits)" >> $out/check_${pid}_thorough.txt)
-    if grep -q "^VIOLATION" $out/check_${pid}_thorough.txt; then cp $out/check_${pid}_thorough.txt $out/check_$pid.txt; fi
-  fi
-fi
-if [ -z "$hits" ] || { ! grep -q "^VIOLATION" $out/check_$pid.txt && grep -q "no obligation was generated" $out/check_$pid.txt; }; then
-  (cd $V && python3 check.py $pid --tier $tier > $out/check_$pid.txt 2>$out/check_$pid.err; echo "exit=$? (tier $tier, full check; native sweep flagged nothing the restricted runs could decide)" >> $out/check_$pid.txt)
-fi
-vif [ -n "$hits" ]; then
-  (cd $V && VERIF_ONLY="$hits" python3 check.py $pid --tier $tier > $out/check_$pid.txt 2>$out/check_$pid.err; echo "exit=$? (tier $tier, restricted to the harnesses the native sweep flagged: $hits)" >> $out/check_$pid.txt)
-  if ! grep -q "^VIOLATION" $out/check_$pid.txt && [ "$tier" = quick ]; then
-    # the flagged harnesses may belong to the thorough tier only (larger bounds, slow ones)
-    (cd $V && VERIF_ONLY="$hits" python3 check.py $pid --tier thorough > $out/check_${pid}_thorough.txt 2>$out/check_${pid}_thorough.err; echo "exit=$? (tier thorough, restricted to the harnesses the native sweep flagged: $hits)" >> $out/check_${pid}_thorough.txt)
-    if grep -q "^VIOLATION" $out/check_${pid}_thorough.txt; then cp $out/check_${pid}_thorough.txt $out/check_$pid.txt; fi
-  fi
-fi
-if [ -z "$hits" ] || { ! grep -q "^VIOLATION" $out/check_$pid.txt && grep -q "no obligation was generated" $out/check_$pid.txt; }; then
-  (cd $V && python3 check.py $pid --tier $tier > $out/check_$pid.txt 2>$out/check_$pid.err; echo "exit=$? (tier $tier, full check; native sweep flagged nothing the restricted runs could decide)" >> $out/check_$pid.txt)
-fi
-eif [ -n "$hits" ]; then
-  (cd $V && VERIF_ONLY="$hits" python3 check.py $pid --tier $tier > $out/check_$pid.txt 2>$out/check_$pid.err; echo "exit=$? (tier $tier, restricted to the harnesses the native sweep flagged: $hits)" >> $out/check_$pid.txt)
-  if ! grep -q "^VIOLATION" $out/check_$pid.txt && [ "$tier" = quick ]; then
-    # the flagged harnesses may belong to the thorough tier only (larger bounds, slow ones)
-    (cd $V && VERIF_ONLY="$hits" python3 check.py $pid --tier thorough > $out/check_${pid}_thorough.txt 2>$out/check_${pid}_thorough.err; echo "exit=$? (tier thorough, restricted to the harnesses the native sweep flagged: $hits)" >> $out/check_${pid}_thorough.txt)
-    if grep -q "^VIOLATION" $out/check_${pid}_thorough.txt; then cp $out/check_${pid}_thorough.txt $out/check_$pid.txt; fi
-  fi
-fi
-if [ -z "$hits" ] || { ! grep -q "^VIOLATION" $out/check_$pid.txt && grep -q "no obligation was generated" $out/check_$pid.txt; }; then
-  (cd $V && python3 check.py $pid --tier $tier > $out/check_$pid.txt 2>$out/check_$pid.err; echo "exit=$? (tier $tier, full check; native sweep flagged nothing the restricted runs could decide)" >> $out/check_$pid.txt)
-fi
- if [ -n "$hits" ]; then
-  (cd $V && VERIF_ONLY="$hits" python3 check.py $pid --tier $tier > $out/check_$pid.txt 2>$out/check_$pid.err; echo "exit=$? (tier $tier, restricted to the harnesses the native sweep flagged: $hits)" >> $out/check_$pid.txt)
-  if ! grep -q "^VIOLATION" $out/check_$pid.txt && [ "$tier" = quick ]; then
-    # the flagged harnesses may belong to the thorough tier only (larger bounds, slow ones)
-    (cd $V && VERIF_ONLY="$hits" python3 check.py $pid --tier thorough > $out/check_${pid}_thorough.txt 2>$out/check_${pid}_thorough.err; echo "exit=$? (tier thorough, restricted to the harnesses the native sweep flagged: $hits)" >> $out/check_${pid}_thorough.txt)
-    if grep -q "^VIOLATION" $out/check_${pid}_thorough.txt; then cp $out/check_${pid}_thorough.txt $out/check_$pid.txt; fi
-  fi
-fi
-if [ -z "$hits" ] || { ! grep -q "^VIOLATION" $out/check_$pid.txt && grep -q "no obligation was generated" $out/check_$pid.txt; }; then
-  (cd $V && python3 check.py $pid --tier $tier > $out/check_$pid.txt 2>$out/check_$pid.err; echo "exit=$? (tier $tier, full check; native sweep flagged nothing the restricted runs could decide)" >> $out/check_$pid.txt)
-fi
-sif [ -n "$hits" ]; then
-  (cd $V && VERIF_ONLY="$hits" python3 check.py $pid --tier $tier > $out/check_$pid.txt 2>$out/check_$pid.err; echo "exit=$? (tier $tier, restricted to the harnesses the native sweep flagged: $hits)" >> $out/check_$pid.txt)
-  if ! grep -q "^VIOLATION" $out/check_$pid.txt && [ "$tier" = quick ]; then
-    # the flagged harnesses may belong to the thorough tier only (larger bounds, slow ones)
-    (cd $V && VERIF_ONLY="$hits" python3 check.py $pid --tier thorough > $out/check_${pid}_thorough.txt 2>$out/check_${pid}_thorough.err; echo "exit=$? (tier thorough, restricted to the harnesses the native sweep flagged: $hits)" >> $out/check_${pid}_thorough.txt)
-    if grep -q "^VIOLATION" $out/check_${pid}_thorough.txt; then cp $out/check_${pid}_thorough.txt $out/check_$pid.txt; fi
-  fi
-fi
-if [ -z "$hits" ] || { ! grep -q "^VIOLATION" $out/check_$pid.txt && grep -q "no obligation was generated" $out/check_$pid.txt; }; then
-  (cd $V && python3 check.py $pid --tier $tier > $out/check_$pid.txt 2>$out/check_$pid.err; echo "exit=$? (tier $tier, full check; native sweep flagged nothing the restricted runs could decide)" >> $out/check_$pid.txt)
-fi
-wif [ -n "$hits" ]; then
-  (cd $V && VERIF_ONLY="$hits" python3 check.py $pid --tier $tier > $out/check_$pid.txt 2>$out/check_$pid.err; echo "exit=$? (tier $tier, restricted to the harnesses the native sweep flagged: $hits)" >> $out/check_$pid.txt)
-  if ! grep -q "^VIOLATION" $out/check_$pid.txt && [ "$tier" = quick ]; then
-    # the flagged harnesses may belong to the thorough tier only (larger bounds, slow ones)
-    (cd $V && VERIF_ONLY="$hits" python3 check.py $pid --tier thorough > $out/check_${pid}_thorough.txt 2>$out/check_${pid}_thorough.err; echo "exit=$? (tier thorough, restricted to the harnesses the native sweep flagged: $hits)" >> $out/check_${pid}_thorough.txt)
-    if grep -q "^VIOLATION" $out/check_${pid}_thorough.txt; then cp $out/check_${pid}_thorough.txt $out/check_$pid.txt; fi
-  fi
-fi
-if [ -z "$hits" ] || { ! grep -q "^VIOLATION" $out/check_$pid.txt && grep -q "no obligation was generated" $out/check_$pid.txt; }; then
-  (cd $V && python3 check.py $pid --tier $tier > $out/check_$pid.txt 2>$out/check_$pid.err; echo "exit=$? (tier $tier, full check; native sweep flagged nothing the restricted runs could decide)" >> $out/check_$pid.txt)
-fi
-eif [ -n "$hits" ]; then
-  (cd $V && VERIF_ONLY="$hits" python3 check.py $pid --tier $tier > $out/check_$pid.txt 2>$out/check_$pid.err; echo "exit=$? (tier $tier, restricted to the harnesses the native sweep flagged: $hits)" >> $out/check_$pid.txt)
-  if ! grep -q "^VIOLATION" $out/check_$pid.txt && [ "$tier" = quick ]; then
-    # the flagged harnesses may belong to the thorough tier only (larger bounds, slow ones)
-    (cd $V && VERIF_ONLY="$hits" python3 check.py $pid --tier thorough > $out/check_${pid}_thorough.txt 2>$out/check_${pid}_thorough.err; echo "exit=$? (tier thorough, restricted to the harnesses the native sweep flagged: $hits)" >> $out/check_${pid}_thorough.txt)
-    if grep -q "^VIOLATION" $out/check_${pid}_thorough.txt; then cp $out/check_${pid}_thorough.txt $out/check_$pid.txt; fi
-  fi
-fi
-if [ -z "$hits" ] || { ! grep -q "^VIOLATION" $out/check_$pid.txt && grep -q "no obligation was generated" $out/check_$pid.txt; }; then
-  (cd $V && python3 check.py $pid --tier $tier > $out/check_$pid.txt 2>$out/check_$pid.err; echo "exit=$? (tier $tier, full check; native sweep flagged nothing the restricted runs could decide)" >> $out/check_$pid.txt)
-fi
-eif [ -n "$hits" ]; then
-  (cd $V && VERIF_ONLY="$hits" python3 check.py $pid --tier $tier > $out/check_$pid.txt 2>$out/check_$pid.err; echo "exit=$? (tier $tier, restricted to the harnesses the native sweep flagged: $hits)" >> $out/check_$pid.txt)
-  if ! grep -q "^VIOLATION" $out/check_$pid.txt && [ "$tier" = quick ]; then
-    # the flagged harnesses may belong to the thorough tier only (larger bounds, slow ones)
-    (cd $V && VERIF_ONLY="$hits" python3 check.py $pid --tier thorough > $out/check_${pid}_thorough.txt 2>$out/check_${pid}_thorough.err; echo "exit=$? (tier thorough, restricted to the harnesses the native sweep flagged: $hits)" >> $out/check_${pid}_thorough.txt)
-    if grep -q "^VIOLATION" $out/check_${pid}_thorough.txt; then cp $out/check_${pid}_thorough.txt $out/check_$pid.txt; fi
-  fi
-fi
-if [ -z "$hits" ] || { ! grep -q "^VIOLATION" $out/check_$pid.txt && grep -q "no obligation was generated" $out/check_$pid.txt; }; then
-  (cd $V && python3 check.py $pid --tier $tier > $out/check_$pid.txt 2>$out/check_$pid.err; echo "exit=$? (tier $tier, full check; native sweep flagged nothing the restricted runs could decide)" >> $out/check_$pid.txt)
-fi
-pif [ -n "$hits" ]; then
-  (cd $V && VERIF_ONLY="$hits" python3 check.py $pid --tier $tier > $out/check_$pid.txt 2>$out/check_$pid.err; echo "exit=$? (tier $tier, restricted to the harnesses the native sweep flagged: $hits)" >> $out/check_$pid.txt)
-  if ! grep -q "^VIOLATION" $out/check_$pid.txt && [ "$tier" = quick ]; then
-    # the flagged harnesses may belong to the thorough tier only (larger bounds, slow ones)
-    (cd $V && VERIF_ONLY="$hits" python3 check.py $pid --tier thorough > $out/check_${pid}_thorough.txt 2>$out/check_${pid}_thorough.err; echo "exit=$? (tier thorough, restricted to the harnesses the native sweep flagged: $hits)" >> $out/check_${pid}_thorough.txt)
-    if grep -q "^VIOLATION" $out/check_${pid}_thorough.txt; then cp $out/check_${pid}_thorough.txt $out/check_$pid.txt; fi
-  fi
-fi
-if [ -z "$hits" ] || { ! grep -q "^VIOLATION" $out/check_$pid.txt && grep -q "no obligation was generated" $out/check_$pid.txt; }; then
-  (cd $V && python3 check.py $pid --tier $tier > $out/check_$pid.txt 2>$out/check_$pid.err; echo "exit=$? (tier $tier, full check; native sweep flagged nothing the restricted runs could decide)" >> $out/check_$pid.txt)
-fi
- if [ -n "$hits" ]; then
-  (cd $V && VERIF_ONLY="$hits" python3 check.py $pid --tier $tier > $out/check_$pid.txt 2>$out/check_$pid.err; echo "exit=$? (tier $tier, restricted to the harnesses the native sweep flagged: $hits)" >> $out/check_$pid.txt)
-  if ! grep -q "^VIOLATION" $out/check_$pid.txt && [ "$tier" = quick ]; then
-    # the flagged harnesses may belong to the thorough tier only (larger bounds, slow ones)
-    (cd $V && VERIF_ONLY="$hits" python3 check.py $pid --tier thorough > $out/check_${pid}_thorough.txt 2>$out/check_${pid}_thorough.err; echo "exit=$? (tier thorough, restricted to the harnesses the native sweep flagged: $hits)" >> $out/check_${pid}_thorough.txt)
-    if grep -q "^VIOLATION" $out/check_${pid}_thorough.txt; then cp $out/check_${pid}_thorough.txt $out/check_$pid.txt; fi
-  fi
-fi
-if [ -z "$hits" ] || { ! grep -q "^VIOLATION" $out/check_$pid.txt && grep -q "no obligation was generated" $out/check_$pid.txt; }; then
-  (cd $V && python3 check.py $pid --tier $tier > $out/check_$pid.txt 2>$out/check_$pid.err; echo "exit=$? (tier $tier, full check; native sweep flagged nothing the restricted runs could decide)" >> $out/check_$pid.txt)
-fi
-fif [ -n "$hits" ]; then
-  (cd $V && VERIF_ONLY="$hits" python3 check.py $pid --tier $tier > $out/check_$pid.txt 2>$out/check_$pid.err; echo "exit=$? (tier $tier, restricted to the harnesses the native sweep flagged: $hits)" >> $out/check_$pid.txt)
-  if ! grep -q "^VIOLATION" $out/check_$pid.txt && [ "$tier" = quick ]; then
-    # the flagged harnesses may belong to the thorough tier only (larger bounds, slow ones)
-    (cd $V && VERIF_ONLY="$hits" python3 check.py $pid --tier thorough > $out/check_${pid}_thorough.txt 2>$out/check_${pid}_thorough.err; echo "exit=$? (tier thorough, restricted to the harnesses the native sweep flagged: $hits)" >> $out/check_${pid}_thorough.txt)
-    if grep -q "^VIOLATION" $out/check_${pid}_thorough.txt; then cp $out/check_${pid}_thorough.txt $out/check_$pid.txt; fi
-  fi
-fi
-if [ -z "$hits" ] || { ! grep -q "^VIOLATION" $out/check_$pid.txt && grep -q "no obligation was generated" $out/check_$pid.txt; }; then
-  (cd $V && python3 check.py $pid --tier $tier > $out/check_$pid.txt 2>$out/check_$pid.err; echo "exit=$? (tier $tier, full check; native sweep flagged nothing the restricted runs could decide)" >> $out/check_$pid.txt)
-fi
-lif [ -n "$hits" ]; then
-  (cd $V && VERIF_ONLY="$hits" python3 check.py $pid --tier $tier > $out/check_$pid.txt 2>$out/check_$pid.err; echo "exit=$? (tier $tier, restricted to the harnesses the native sweep flagged: $hits)" >> $out/check_$pid.txt)
-  if ! grep -q "^VIOLATION" $out/check_$pid.txt && [ "$tier" = quick ]; then
-    # the flagged harnesses may belong to the thorough tier only (larger bounds, slow ones)
-    (cd $V && VERIF_ONLY="$hits" python3 check.py $pid --tier thorough > $out/check_${pid}_thorough.txt 2>$out/check_${pid}_thorough.err; echo "exit=$? (tier thorough, restricted to the harnesses the native sweep flagged: $hits)" >> $out/check_${pid}_thorough.txt)
-    if grep -q "^VIOLATION" $out/check_${pid}_thorough.txt; then cp $out/check_${pid}_thorough.txt $out/check_$pid.txt; fi
-  fi
-fi
-if [ -z "$hits" ] || { ! grep -q "^VIOLATION" $out/check_$pid.txt && grep -q "no obligation was generated" $out/check_$pid.txt; }; then
-  (cd $V && python3 check.py $pid --tier $tier > $out/check_$pid.txt 2>$out/check_$pid.err; echo "exit=$? (tier $tier, full check; native sweep flagged nothing the restricted runs could decide)" >> $out/check_$pid.txt)
-fi
-aif [ -n "$hits" ]; then
-  (cd $V && VERIF_ONLY="$hits" python3 check.py $pid --tier $tier > $out/check_$pid.txt 2>$out/check_$pid.err; echo "exit=$? (tier $tier, restricted to the harnesses the native sweep flagged: $hits)" >> $out/check_$pid.txt)
-  if ! grep -q "^VIOLATION" $out/check_$pid.txt && [ "$tier" = quick ]; then
-    # the flagged harnesses may belong to the thorough tier only (larger bounds, slow ones)
-    (cd $V && VERIF_ONLY="$hits" python3 check.py $pid --tier thorough > $out/check_${pid}_thorough.txt 2>$out/check_${pid}_thorough.err; echo "exit=$? (tier thorough, restricted to the harnesses the native sweep flagged: $hits)" >> $out/check_${pid}_thorough.txt)
-    if grep -q "^VIOLATION" $out/check_${pid}_thorough.txt; then cp $out/check_${pid}_thorough.txt $out/check_$pid.txt; fi
-  fi
-fi
-if [ -z "$hits" ] || { ! grep -q "^VIOLATION" $out/check_$pid.txt && grep -q "no obligation was generated" $out/check_$pid.txt; }; then
-  (cd $V && python3 check.py $pid --tier $tier > $out/check_$pid.txt 2>$out/check_$pid.err; echo "exit=$? (tier $tier, full check; native sweep flagged nothing the restricted runs could decide)" >> $out/check_$pid.txt)
-fi
-gif [ -n "$hits" ]; then
-  (cd $V && VERIF_ONLY="$hits" python3 check.py $pid --tier $tier > $out/check_$pid.txt 2>$out/check_$pid.err; echo "exit=$? (tier $tier, restricted to the harnesses the native sweep flagged: $hits)" >> $out/check_$pid.txt)
-  if ! grep -q "^VIOLATION" $out/check_$pid.txt && [ "$tier" = quick ]; then
-    # the flagged harnesses may belong to the thorough tier only (larger bounds, slow ones)
-    (cd $V && VERIF_ONLY="$hits" python3 check.py $pid --tier thorough > $out/check_${pid}_thorough.txt 2>$out/check_${pid}_thorough.err; echo "exit=$? (tier thorough, restricted to the harnesses the native sweep flagged: $hits)" >> $out/check_${pid}_thorough.txt)
-    if grep -q "^VIOLATION" $out/check_${pid}_thorough.txt; then cp $out/check_${pid}_thorough.txt $out/check_$pid.txt; fi
-  fi
-fi
-if [ -z "$hits" ] || { ! grep -q "^VIOLATION" $out/check_$pid.txt && grep -q "no obligation was generated" $out/check_$pid.txt; }; then
-  (cd $V && python3 check.py $pid --tier $tier > $out/check_$pid.txt 2>$out/check_$pid.err; echo "exit=$? (tier $tier, full check; native sweep flagged nothing the restricted runs could decide)" >> $out/check_$pid.txt)
-fi
-gif [ -n "$hits" ]; then
-  (cd $V && VERIF_ONLY="$hits" python3 check.py $pid --tier $tier > $out/check_$pid.txt 2>$out/check_$pid.err; echo "exit=$? (tier $tier, restricted to the harnesses the native sweep flagged: $hits)" >> $out/check_$pid.txt)
-  if ! grep -q "^VIOLATION" $out/check_$pid.txt && [ "$tier" = quick ]; then
-    # the flagged harnesses may belong to the thorough tier only (larger bounds, slow ones)
-    (cd $V && VERIF_ONLY="$hits" python3 check.py $pid --tier thorough > $out/check_${pid}_thorough.txt 2>$out/check_${pid}_thorough.err; echo "exit=$? (tier thorough, restricted to the harnesses the native sweep flagged: $hits)" >> $out/check_${pid}_thorough.txt)
-    if grep -q "^VIOLATION" $out/check_${pid}_thorough.txt; then cp $out/check_${pid}_thorough.txt $out/check_$pid.txt; fi
-  fi
-fi
-if [ -z "$hits" ] || { ! grep -q "^VIOLATION" $out/check_$pid.txt && grep -q "no obligation was generated" $out/check_$pid.txt; }; then
-  (cd $V && python3 check.py $pid --tier $tier > $out/check_$pid.txt 2>$out/check_$pid.err; echo "exit=$? (tier $tier, full check; native sweep flagged nothing the restricted runs could decide)" >> $out/check_$pid.txt)
-fi
-eif [ -n "$hits" ]; then
-  (cd $V && VERIF_ONLY="$hits" python3 check.py $pid --tier $tier > $out/check_$pid.txt 2>$out/check_$pid.err; echo "exit=$? (tier $tier, restricted to the harnesses the native sweep flagged: $hits)" >> $out/check_$pid.txt)
-  if ! grep -q "^VIOLATION" $out/check_$pid.txt && [ "$tier" = quick ]; then
-    # the flagged harnesses may belong to the thorough tier only (larger bounds, slow ones)
-    (cd $V && VERIF_ONLY="$hits" python3 check.py $pid --tier thorough > $out/check_${pid}_thorough.txt 2>$out/check_${pid}_thorough.err; echo "exit=$? (tier thorough, restricted to the harnesses the native sweep flagged: $hits)" >> $out/check_${pid}_thorough.txt)
-    if grep -q "^VIOLATION" $out/check_${pid}_thorough.txt; then cp $out/check_${pid}_thorough.txt $out/check_$pid.txt; fi
-  fi
-fi
-if [ -z "$hits" ] || { ! grep -q "^VIOLATION" $out/check_$pid.txt && grep -q "no obligation was generated" $out/check_$pid.txt; }; then
-  (cd $V && python3 check.py $pid --tier $tier > $out/check_$pid.txt 2>$out/check_$pid.err; echo "exit=$? (tier $tier, full check; native sweep flagged nothing the restricted runs could decide)" >> $out/check_$pid.txt)
-fi
-dif [ -n "$hits" ]; then
-  (cd $V && VERIF_ONLY="$hits" python3 check.py $pid --tier $tier > $out/check_$pid.txt 2>$out/check_$pid.err; echo "exit=$? (tier $tier, restricted to the harnesses the native sweep flagged: $hits)" >> $out/check_$pid.txt)
-  if ! grep -q "^VIOLATION" $out/check_$pid.txt && [ "$tier" = quick ]; then
-    # the flagged harnesses may belong to the thorough tier only (larger bounds, slow ones)
-    (cd $V && VERIF_ONLY="$hits" python3 check.py $pid --tier thorough > $out/check_${pid}_thorough.txt 2>$out/check_${pid}_thorough.err; echo "exit=$? (tier thorough, restricted to the harnesses the native sweep flagged: $hits)" >> $out/check_${pid}_thorough.txt)
-    if grep -q "^VIOLATION" $out/check_${pid}_thorough.txt; then cp $out/check_${pid}_thorough.txt $out/check_$pid.txt; fi
-  fi
-fi
-if [ -z "$hits" ] || { ! grep -q "^VIOLATION" $out/check_$pid.txt && grep -q "no obligation was generated" $out/check_$pid.txt; }; then
-  (cd $V && python3 check.py $pid --tier $tier > $out/check_$pid.txt 2>$out/check_$pid.err; echo "exit=$? (tier $tier, full check; native sweep flagged nothing the restricted runs could decide)" >> $out/check_$pid.txt)
-fi
- if [ -n "$hits" ]; then
-  (cd $V && VERIF_ONLY="$hits" python3 check.py $pid --tier $tier > $out/check_$pid.txt 2>$out/check_$pid.err; echo "exit=$? (tier $tier, restricted to the harnesses the native sweep flagged: $hits)" >> $out/check_$pid.txt)
-  if ! grep -q "^VIOLATION" $out/check_$pid.txt && [ "$tier" = quick ]; then
-    # the flagged harnesses may belong to the thorough tier only (larger bounds, slow ones)
-    (cd $V && VERIF_ONLY="$hits" python3 check.py $pid --tier thorough > $out/check_${pid}_thorough.txt 2>$out/check_${pid}_thorough.err; echo "exit=$? (tier thorough, restricted to the harnesses the native sweep flagged: $hits)" >> $out/check_${pid}_thorough.txt)
-    if grep -q "^VIOLATION" $out/check_${pid}_thorough.txt; then cp $out/check_${pid}_thorough.txt $out/check_$pid.txt; fi
-  fi
-fi
-if [ -z "$hits" ] || { ! grep -q "^VIOLATION" $out/check_$pid.txt && grep -q "no obligation was generated" $out/check_$pid.txt; }; then
-  (cd $V && python3 check.py $pid --tier $tier > $out/check_$pid.txt 2>$out/check_$pid.err; echo "exit=$? (tier $tier, full check; native sweep flagged nothing the restricted runs could decide)" >> $out/check_$pid.txt)
-fi
-nif [ -n "$hits" ]; then
-  (cd $V && VERIF_ONLY="$hits" python3 check.py $pid --tier $tier > $out/check_$pid.txt 2>$out/check_$pid.err; echo "exit=$? (tier $tier, restricted to the harnesses the native sweep flagged: $hits)" >> $out/check_$pid.txt)
-  if ! grep -q "^VIOLATION" $out/check_$pid.txt && [ "$tier" = quick ]; then
-    # the flagged harnesses may belong to the thorough tier only (larger bounds, slow ones)
-    (cd $V && VERIF_ONLY="$hits" python3 check.py $pid --tier thorough > $out/check_${pid}_thorough.txt 2>$out/check_${pid}_thorough.err; echo "exit=$? (tier thorough, restricted to the harnesses the native sweep flagged: $hits)" >> $out/check_${pid}_thorough.txt)
-    if grep -q "^VIOLATION" $out/check_${pid}_thorough.txt; then cp $out/check_${pid}_thorough.txt $out/check_$pid.txt; fi
-  fi
-fi
-if [ -z "$hits" ] || { ! grep -q "^VIOLATION" $out/check_$pid.txt && grep -q "no obligation was generated" $out/check_$pid.txt; }; then
-  (cd $V && python3 check.py $pid --tier $tier > $out/check_$pid.txt 2>$out/check_$pid.err; echo "exit=$? (tier $tier, full check; native sweep flagged nothing the restricted runs could decide)" >> $out/check_$pid.txt)
-fi
-oif [ -n "$hits" ]; then
-  (cd $V && VERIF_ONLY="$hits" python3 check.py $pid --tier $tier > $out/check_$pid.txt 2>$out/check_$pid.err; echo "exit=$? (tier $tier, restricted to the harnesses the native sweep flagged: $hits)" >> $out/check_$pid.txt)
-  if ! grep -q "^VIOLATION" $out/check_$pid.txt && [ "$tier" = quick ]; then
-    # the flagged harnesses may belong to the thorough tier only (larger bounds, slow ones)
-    (cd $V && VERIF_ONLY="$hits" python3 check.py $pid --tier thorough > $out/check_${pid}_thorough.txt 2>$out/check_${pid}_thorough.err; echo "exit=$? (tier thorough, restricted to the harnesses the native sweep flagged: $hits)" >> $out/check_${pid}_thorough.txt)
-    if grep -q "^VIOLATION" $out/check_${pid}_thorough.txt; then cp $out/check_${pid}_thorough.txt $out/check_$pid.txt; fi
-  fi
-fi
-if [ -z "$hits" ] || { ! grep -q "^VIOLATION" $out/check_$pid.txt && grep -q "no obligation was generated" $out/check_$pid.txt; }; then
-  (cd $V && python3 check.py $pid --tier $tier > $out/check_$pid.txt 2>$out/check_$pid.err; echo "exit=$? (tier $tier, full check; native sweep flagged nothing the restricted runs could decide)" >> $out/check_$pid.txt)
-fi
-tif [ -n "$hits" ]; then
-  (cd $V && VERIF_ONLY="$hits" python3 check.py $pid --tier $tier > $out/check_$pid.txt 2>$out/check_$pid.err; echo "exit=$? (tier $tier, restricted to the harnesses the native sweep flagged: $hits)" >> $out/check_$pid.txt)
-  if ! grep -q "^VIOLATION" $out/check_$pid.txt && [ "$tier" = quick ]; then
-    # the flagged harnesses may belong to the thorough tier only (larger bounds, slow ones)
-    (cd $V && VERIF_ONLY="$hits" python3 check.py $pid --tier thorough > $out/check_${pid}_thorough.txt 2>$out/check_${pid}_thorough.err; echo "exit=$? (tier thorough, restricted to the harnesses the native sweep flagged: $hits)" >> $out/check_${pid}_thorough.txt)
-    if grep -q "^VIOLATION" $out/check_${pid}_thorough.txt; then cp $out/check_${pid}_thorough.txt $out/check_$pid.txt; fi
-  fi
-fi
-if [ -z "$hits" ] || { ! grep -q "^VIOLATION" $out/check_$pid.txt && grep -q "no obligation was generated" $out/check_$pid.txt; }; then
-  (cd $V && python3 check.py $pid --tier $tier > $out/check_$pid.txt 2>$out/check_$pid.err; echo "exit=$? (tier $tier, full check; native sweep flagged nothing the restricted runs could decide)" >> $out/check_$pid.txt)
-fi
-hif [ -n "$hits" ]; then
-  (cd $V && VERIF_ONLY="$hits" python3 check.py $pid --tier $tier > $out/check_$pid.txt 2>$out/check_$pid.err; echo "exit=$? (tier $tier, restricted to the harnesses the native sweep flagged: $hits)" >> $out/check_$pid.txt)
-  if ! grep -q "^VIOLATION" $out/check_$pid.txt && [ "$tier" = quick ]; then
-    # the flagged harnesses may belong to the thorough tier only (larger bounds, slow ones)
-    (cd $V && VERIF_ONLY="$hits" python3 check.py $pid --tier thorough > $out/check_${pid}_thorough.txt 2>$out/check_${pid}_thorough.err; echo "exit=$? (tier thorough, restricted to the harnesses the native sweep flagged: $hits)" >> $out/check_${pid}_thorough.txt)
-    if grep -q "^VIOLATION" $out/check_${pid}_thorough.txt; then cp $out/check_${pid}_thorough.txt $out/check_$pid.txt; fi
-  fi
-fi
-if [ -z "$hits" ] || { ! grep -q "^VIOLATION" $out/check_$pid.txt && grep -q "no obligation was generated" $out/check_$pid.txt; }; then
-  (cd $V && python3 check.py $pid --tier $tier > $out/check_$pid.txt 2>$out/check_$pid.err; echo "exit=$? (tier $tier, full check; native sweep flagged nothing the restricted runs could decide)" >> $out/check_$pid.txt)
-fi
-iif [ -n "$hits" ]; then
-  (cd $V && VERIF_ONLY="$hits" python3 check.py $pid --tier $tier > $out/check_$pid.txt 2>$out/check_$pid.err; echo "exit=$? (tier $tier, restricted to the harnesses the native sweep flagged: $hits)" >> $out/check_$pid.txt)
-  if ! grep -q "^VIOLATION" $out/check_$pid.txt && [ "$tier" = quick ]; then
-    # the flagged harnesses may belong to the thorough tier only (larger bounds, slow ones)
-    (cd $V && VERIF_ONLY="$hits" python3 check.py $pid --tier thorough > $out/check_${pid}_thorough.txt 2>$out/check_${pid}_thorough.err; echo "exit=$? (tier thorough, restricted to the harnesses the native sweep flagged: $hits)" >> $out/check_${pid}_thorough.txt)
-    if grep -q "^VIOLATION" $out/check_${pid}_thorough.txt; then cp $out/check_${pid}_thorough.txt $out/check_$pid.txt; fi
-  fi
-fi
-if [ -z "$hits" ] || { ! grep -q "^VIOLATION" $out/check_$pid.txt && grep -q "no obligation was generated" $out/check_$pid.txt; }; then
-  (cd $V && python3 check.py $pid --tier $tier > $out/check_$pid.txt 2>$out/check_$pid.err; echo "exit=$? (tier $tier, full check; native sweep flagged nothing the restricted runs could decide)" >> $out/check_$pid.txt)
-fi
-nif [ -n "$hits" ]; then
-  (cd $V && VERIF_ONLY="$hits" python3 check.py $pid --tier $tier > $out/check_$pid.txt 2>$out/check_$pid.err; echo "exit=$? (tier $tier, restricted to the harnesses the native sweep flagged: $hits)" >> $out/check_$pid.txt)
-  if ! grep -q "^VIOLATION" $out/check_$pid.txt && [ "$tier" = quick ]; then
-    # the flagged harnesses may belong to the thorough tier only (larger bounds, slow ones)
-    (cd $V && VERIF_ONLY="$hits" python3 check.py $pid --tier thorough > $out/check_${pid}_thorough.txt 2>$out/check_${pid}_thorough.err; echo "exit=$? (tier thorough, restricted to the harnesses the native sweep flagged: $hits)" >> $out/check_${pid}_thorough.txt)
-    if grep -q "^VIOLATION" $out/check_${pid}_thorough.txt; then cp $out/check_${pid}_thorough.txt $out/check_$pid.txt; fi
-  fi
-fi
-if [ -z "$hits" ] || { ! grep -q "^VIOLATION" $out/check_$pid.txt && grep -q "no obligation was generated" $out/check_$pid.txt; }; then
-  (cd $V && python3 check.py $pid --tier $tier > $out/check_$pid.txt 2>$out/check_$pid.err; echo "exit=$? (tier $tier, full check; native sweep flagged nothing the restricted runs could decide)" >> $out/check_$pid.txt)
-fi
-gif [ -n "$hits" ]; then
-  (cd $V && VERIF_ONLY="$hits" python3 check.py $pid --tier $tier > $out/check_$pid.txt 2>$out/check_$pid.err; echo "exit=$? (tier $tier, restricted to the harnesses the native sweep flagged: $hits)" >> $out/check_$pid.txt)
-  if ! grep -q "^VIOLATION" $out/check_$pid.txt && [ "$tier" = quick ]; then
-    # the flagged harnesses may belong to the thorough tier only (larger bounds, slow ones)
-    (cd $V && VERIF_ONLY="$hits" python3 check.py $pid --tier thorough > $out/check_${pid}_thorough.txt 2>$out/check_${pid}_thorough.err; echo "exit=$? (tier thorough, restricted to the harnesses the native sweep flagged: $hits)" >> $out/check_${pid}_thorough.txt)
-    if grep -q "^VIOLATION" $out/check_${pid}_thorough.txt; then cp $out/check_${pid}_thorough.txt $out/check_$pid.txt; fi
-  fi
-fi
-if [ -z "$hits" ] || { ! grep -q "^VIOLATION" $out/check_$pid.txt && grep -q "no obligation was generated" $out/check_$pid.txt; }; then
-  (cd $V && python3 check.py $pid --tier $tier > $out/check_$pid.txt 2>$out/check_$pid.err; echo "exit=$? (tier $tier, full check; native sweep flagged nothing the restricted runs could decide)" >> $out/check_$pid.txt)
-fi
-)if [ -n "$hits" ]; then
-  (cd $V && VERIF_ONLY="$hits" python3 check.py $pid --tier $tier > $out/check_$pid.txt 2>$out/check_$pid.err; echo "exit=$? (tier $tier, restricted to the harnesses the native sweep flagged: $hits)" >> $out/check_$pid.txt)
-  if ! grep -q "^VIOLATION" $out/check_$pid.txt && [ "$tier" = quick ]; then
-    # the flagged harnesses may belong to the thorough tier only (larger bounds, slow ones)
-    (cd $V && VERIF_ONLY="$hits" python3 check.py $pid --tier thorough > $out/check_${pid}_thorough.txt 2>$out/check_${pid}_thorough.err; echo "exit=$? (tier thorough, restricted to the harnesses the native sweep flagged: $hits)" >> $out/check_${pid}_thorough.txt)
-    if grep -q "^VIOLATION" $out/check_${pid}_thorough.txt; then cp $out/check_${pid}_thorough.txt $out/check_$pid.txt; fi
-  fi
-fi
-if [ -z "$hits" ] || { ! grep -q "^VIOLATION" $out/check_$pid.txt && grep -q "no obligation was generated" $out/check_$pid.txt; }; then
-  (cd $V && python3 check.py $pid --tier $tier > $out/check_$pid.txt 2>$out/check_$pid.err; echo "exit=$? (tier $tier, full check; native sweep flagged nothing the restricted runs could decide)" >> $out/check_$pid.txt)
-fi
-"if [ -n "$hits" ]; then
-  (cd $V && VERIF_ONLY="$hits" python3 check.py $pid --tier $tier > $out/check_$pid.txt 2>$out/check_$pid.err; echo "exit=$? (tier $tier, restricted to the harnesses the native sweep flagged: $hits)" >> $out/check_$pid.txt)
-  if ! grep -q "^VIOLATION" $out/check_$pid.txt && [ "$tier" = quick ]; then
-    # the flagged harnesses may belong to the thorough tier only (larger bounds, slow ones)
-    (cd $V && VERIF_ONLY="$hits" python3 check.py $pid --tier thorough > $out/check_${pid}_thorough.txt 2>$out/check_${pid}_thorough.err; echo "exit=$? (tier thorough, restricted to the harnesses the native sweep flagged: $hits)" >> $out/check_${pid}_thorough.txt)
-    if grep -q "^VIOLATION" $out/check_${pid}_thorough.txt; then cp $out/check_${pid}_thorough.txt $out/check_$pid.txt; fi
-  fi
-fi
-if [ -z "$hits" ] || { ! grep -q "^VIOLATION" $out/check_$pid.txt && grep -q "no obligation was generated" $out/check_$pid.txt; }; then
-  (cd $V && python3 check.py $pid --tier $tier > $out/check_$pid.txt 2>$out/check_$pid.err; echo "exit=$? (tier $tier, full check; native sweep flagged nothing the restricted runs could decide)" >> $out/check_$pid.txt)
-fi
- if [ -n "$hits" ]; then
-  (cd $V && VERIF_ONLY="$hits" python3 check.py $pid --tier $tier > $out/check_$pid.txt 2>$out/check_$pid.err; echo "exit=$? (tier $tier, restricted to the harnesses the native sweep flagged: $hits)" >> $out/check_$pid.txt)
-  if ! grep -q "^VIOLATION" $out/check_$pid.txt && [ "$tier" = quick ]; then
-    # the flagged harnesses may belong to the thorough tier only (larger bounds, slow ones)
-    (cd $V && VERIF_ONLY="$hits" python3 check.py $pid --tier thorough > $out/check_${pid}_thorough.txt 2>$out/check_${pid}_thorough.err; echo "exit=$? (tier thorough, restricted to the harnesses the native sweep flagged: $hits)" >> $out/check_${pid}_thorough.txt)
-    if grep -q "^VIOLATION" $out/check_${pid}_thorough.txt; then cp $out/check_${pid}_thorough.txt $out/check_$pid.txt; fi
-  fi
-fi
-if [ -z "$hits" ] || { ! grep -q "^VIOLATION" $out/check_$pid.txt && grep -q "no obligation was generated" $out/check_$pid.txt; }; then
-  (cd $V && python3 check.py $pid --tier $tier > $out/check_$pid.txt 2>$out/check_$pid.err; echo "exit=$? (tier $tier, full check; native sweep flagged nothing the restricted runs could decide)" >> $out/check_$pid.txt)
-fi
->if [ -n "$hits" ]; then
-  (cd $V && VERIF_ONLY="$hits" python3 check.py $pid --tier $tier > $out/check_$pid.txt 2>$out/check_$pid.err; echo "exit=$? (tier $tier, restricted to the harnesses the native sweep flagged: $hits)" >> $out/check_$pid.txt)
-  if ! grep -q "^VIOLATION" $out/check_$pid.txt && [ "$tier" = quick ]; then
-    # the flagged harnesses may belong to the thorough tier only (larger bounds, slow ones)
-    (cd $V && VERIF_ONLY="$hits" python3 check.py $pid --tier thorough > $out/check_${pid}_thorough.txt 2>$out/check_${pid}_thorough.err; echo "exit=$? (tier thorough, restricted to the harnesses the native sweep flagged: $hits)" >> $out/check_${pid}_thorough.txt)
-    if grep -q "^VIOLATION" $out/check_${pid}_thorough.txt; then cp $out/check_${pid}_thorough.txt $out/check_$pid.txt; fi
-  fi
-fi
-if [ -z "$hits" ] || { ! grep -q "^VIOLATION" $out/check_$pid.txt && grep -q "no obligation was generated" $out/check_$pid.txt; }; then
-  (cd $V && python3 check.py $pid --tier $tier > $out/check_$pid.txt 2>$out/check_$pid.err; echo "exit=$? (tier $tier, full check; native sweep flagged nothing the restricted runs could decide)" >> $out/check_$pid.txt)
-fi
->if [ -n "$hits" ]; then
-  (cd $V && VERIF_ONLY="$hits" python3 check.py $pid --tier $tier > $out/check_$pid.txt 2>$out/check_$pid.err; echo "exit=$? (tier $tier, restricted to the harnesses the native sweep flagged: $hits)" >> $out/check_$pid.txt)
-  if ! grep -q "^VIOLATION" $out/check_$pid.txt && [ "$tier" = quick ]; then
-    # the flagged harnesses may belong to the thorough tier only (larger bounds, slow ones)
-    (cd $V && VERIF_ONLY="$hits" python3 check.py $pid --tier thorough > $out/check_${pid}_thorough.txt 2>$out/check_${pid}_thorough.err; echo "exit=$? (tier thorough, restricted to the harnesses the native sweep flagged: $hits)" >> $out/check_${pid}_thorough.txt)
-    if grep -q "^VIOLATION" $out/check_${pid}_thorough.txt; then cp $out/check_${pid}_thorough.txt $out/check_$pid.txt; fi
-  fi
-fi
-if [ -z "$hits" ] || { ! grep -q "^VIOLATION" $out/check_$pid.txt && grep -q "no obligation was generated" $out/check_$pid.txt; }; then
-  (cd $V && python3 check.py $pid --tier $tier > $out/check_$pid.txt 2>$out/check_$pid.err; echo "exit=$? (tier $tier, full check; native sweep flagged nothing the restricted runs could decide)" >> $out/check_$pid.txt)
-fi
- if [ -n "$hits" ]; then
-  (cd $V && VERIF_ONLY="$hits" python3 check.py $pid --tier $tier > $out/check_$pid.txt 2>$out/check_$pid.err; echo "exit=$? (tier $tier, restricted to the harnesses the native sweep flagged: $hits)" >> $out/check_$pid.txt)
-  if ! grep -q "^VIOLATION" $out/check_$pid.txt && [ "$tier" = quick ]; then
-    # the flagged harnesses may belong to the thorough tier only (larger bounds, slow ones)
-    (cd $V && VERIF_ONLY="$hits" python3 check.py $pid --tier thorough > $out/check_${pid}_thorough.txt 2>$out/check_${pid}_thorough.err; echo "exit=$? (tier thorough, restricted to the harnesses the native sweep flagged: $hits)" >> $out/check_${pid}_thorough.txt)
-    if grep -q "^VIOLATION" $out/check_${pid}_thorough.txt; then cp $out/check_${pid}_thorough.txt $out/check_$pid.txt; fi
-  fi
-fi
-if [ -z "$hits" ] || { ! grep -q "^VIOLATION" $out/check_$pid.txt && grep -q "no obligation was generated" $out/check_$pid.txt; }; then
-  (cd $V && python3 check.py $pid --tier $tier > $out/check_$pid.txt 2>$out/check_$pid.err; echo "exit=$? (tier $tier, full check; native sweep flagged nothing the restricted runs could decide)" >> $out/check_$pid.txt)
-fi
-$if [ -n "$hits" ]; then
-  (cd $V && VERIF_ONLY="$hits" python3 check.py $pid --tier $tier > $out/check_$pid.txt 2>$out/check_$pid.err; echo "exit=$? (tier $tier, restricted to the harnesses the native sweep flagged: $hits)" >> $out/check_$pid.txt)
-  if ! grep -q "^VIOLATION" $out/check_$pid.txt && [ "$tier" = quick ]; then
-    # the flagged harnesses may belong to the thorough tier only (larger bounds, slow ones)
-    (cd $V && VERIF_ONLY="$hits" python3 check.py $pid --tier thorough > $out/check_${pid}_thorough.txt 2>$out/check_${pid}_thorough.err; echo "exit=$? (tier thorough, restricted to the harnesses the native sweep flagged: $hits)" >> $out/check_${pid}_thorough.txt)
-    if grep -q "^VIOLATION" $out/check_${pid}_thorough.txt; then cp $out/check_${pid}_thorough.txt $out/check_$pid.txt; fi
-  fi
-fi
-if [ -z "$hits" ] || { ! grep -q "^VIOLATION" $out/check_$pid.txt && grep -q "no obligation was generated" $out/check_$pid.txt; }; then
-  (cd $V && python3 check.py $pid --tier $tier > $out/check_$pid.txt 2>$out/check_$pid.err; echo "exit=$? (tier $tier, full check; native sweep flagged nothing the restricted runs could decide)" >> $out/check_$pid.txt)
-fi
-oif [ -n "$hits" ]; then
-  (cd $V && VERIF_ONLY="$hits" python3 check.py $pid --tier $tier > $out/check_$pid.txt 2>$out/check_$pid.err; echo "exit=$? (tier $tier, restricted to the harnesses the native sweep flagged: $hits)" >> $out/check_$pid.txt)
-  if ! grep -q "^VIOLATION" $out/check_$pid.txt && [ "$tier" = quick ]; then
-    # the flagged harnesses may belong to the thorough tier only (larger bounds, slow ones)
-    (cd $V && VERIF_ONLY="$hits" python3 check.py $pid --tier thorough > $out/check_${pid}_thorough.txt 2>$out/check_${pid}_thorough.err; echo "exit=$? (tier thorough, restricted to the harnesses the native sweep flagged: $hits)" >> $out/check_${pid}_thorough.txt)
-    if grep -q "^VIOLATION" $out/check_${pid}_thorough.txt; then cp $out/check_${pid}_thorough.txt $out/check_$pid.txt; fi
-  fi
-fi
-if [ -z "$hits" ] || { ! grep -q "^VIOLATION" $out/check_$pid.txt && grep -q "no obligation was generated" $out/check_$pid.txt; }; then
-  (cd $V && python3 check.py $pid --tier $tier > $out/check_$pid.txt 2>$out/check_$pid.err; echo "exit=$? (tier $tier, full check; native sweep flagged nothing the restricted runs could decide)" >> $out/check_$pid.txt)
-fi
-uif [ -n "$hits" ]; then
-  (cd $V && VERIF_ONLY="$hits" python3 check.py $pid --tier $tier > $out/check_$pid.txt 2>$out/check_$pid.err; echo "exit=$? (tier $tier, restricted to the harnesses the native sweep flagged: $hits)" >> $out/check_$pid.txt)
-  if ! grep -q "^VIOLATION" $out/check_$pid.txt && [ "$tier" = quick ]; then
-    # the flagged harnesses may belong to the thorough tier only (larger bounds, slow ones)
-    (cd $V && VERIF_ONLY="$hits" python3 check.py $pid --tier thorough > $out/check_${pid}_thorough.txt 2>$out/check_${pid}_thorough.err; echo "exit=$? (tier thorough, restricted to the harnesses the native sweep flagged: $hits)" >> $out/check_${pid}_thorough.txt)
-    if grep -q "^VIOLATION" $out/check_${pid}_thorough.txt; then cp $out/check_${pid}_thorough.txt $out/check_$pid.txt; fi
-  fi
-fi
-if [ -z "$hits" ] || { ! grep -q "^VIOLATION" $out/check_$pid.txt && grep -q "no obligation was generated" $out/check_$pid.txt; }; then
-  (cd $V && python3 check.py $pid --tier $tier > $out/check_$pid.txt 2>$out/check_$pid.err; echo "exit=$? (tier $tier, full check; native sweep flagged nothing the restricted runs could decide)" >> $out/check_$pid.txt)
-fi
-tif [ -n "$hits" ]; then
-  (cd $V && VERIF_ONLY="$hits" python3 check.py $pid --tier $tier > $out/check_$pid.txt 2>$out/check_$pid.err; echo "exit=$? (tier $tier, restricted to the harnesses the native sweep flagged: $hits)" >> $out/check_$pid.txt)
-  if ! grep -q "^VIOLATION" $out/check_$pid.txt && [ "$tier" = quick ]; then
-    # the flagged harnesses may belong to the thorough tier only (larger bounds, slow ones)
-    (cd $V && VERIF_ONLY="$hits" python3 check.py $pid --tier thorough > $out/check_${pid}_thorough.txt 2>$out/check_${pid}_thorough.err; echo "exit=$? (tier thorough, restricted to the harnesses the native sweep flagged: $hits)" >> $out/check_${pid}_thorough.txt)
-    if grep -q "^VIOLATION" $out/check_${pid}_thorough.txt; then cp $out/check_${pid}_thorough.txt $out/check_$pid.txt; fi
-  fi
-fi
-if [ -z "$hits" ] || { ! grep -q "^VIOLATION" $out/check_$pid.txt && grep -q "no obligation was generated" $out/check_$pid.txt; }; then
-  (cd $V && python3 check.py $pid --tier $tier > $out/check_$pid.txt 2>$out/check_$pid.err; echo "exit=$? (tier $tier, full check; native sweep flagged nothing the restricted runs could decide)" >> $out/check_$pid.txt)
-fi
-/if [ -n "$hits" ]; then
-  (cd $V && VERIF_ONLY="$hits" python3 check.py $pid --tier $tier > $out/check_$pid.txt 2>$out/check_$pid.err; echo "exit=$? (tier $tier, restricted to the harnesses the native sweep flagged: $hits)" >> $out/check_$pid.txt)
-  if ! grep -q "^VIOLATION" $out/check_$pid.txt && [ "$tier" = quick ]; then
-    # the flagged harnesses may belong to the thorough tier only (larger bounds, slow ones)
-    (cd $V && VERIF_ONLY="$hits" python3 check.py $pid --tier thorough > $out/check_${pid}_thorough.txt 2>$out/check_${pid}_thorough.err; echo "exit=$? (tier thorough, restricted to the harnesses the native sweep flagged: $hits)" >> $out/check_${pid}_thorough.txt)
-    if grep -q "^VIOLATION" $out/check_${pid}_thorough.txt; then cp $out/check_${pid}_thorough.txt $out/check_$pid.txt; fi
-  fi
-fi
-if [ -z "$hits" ] || { ! grep -q "^VIOLATION" $out/check_$pid.txt && grep -q "no obligation was generated" $out/check_$pid.txt; }; then
-  (cd $V && python3 check.py $pid --tier $tier > $out/check_$pid.txt 2>$out/check_$pid.err; echo "exit=$? (tier $tier, full check; native sweep flagged nothing the restricted runs could decide)" >> $out/check_$pid.txt)
-fi
-cif [ -n "$hits" ]; then
-  (cd $V && VERIF_ONLY="$hits" python3 check.py $pid --tier $tier > $out/check_$pid.txt 2>$out/check_$pid.err; echo "exit=$? (tier $tier, restricted to the harnesses the native sweep flagged: $hits)" >> $out/check_$pid.txt)
-  if ! grep -q "^VIOLATION" $out/check_$pid.txt && [ "$tier" = quick ]; then
-    # the flagged harnesses may belong to the thorough tier only (larger bounds, slow ones)
-    (cd $V && VERIF_ONLY="$hits" python3 check.py $pid --tier thorough > $out/check_${pid}_thorough.txt 2>$out/check_${pid}_thorough.err; echo "exit=$? (tier thorough, restricted to the harnesses the native sweep flagged: $hits)" >> $out/check_${pid}_thorough.txt)
-    if grep -q "^VIOLATION" $out/check_${pid}_thorough.txt; then cp $out/check_${pid}_thorough.txt $out/check_$pid.txt; fi
-  fi
-fi
-if [ -z "$hits" ] || { ! grep -q "^VIOLATION" $out/check_$pid.txt && grep -q "no obligation was generated" $out/check_$pid.txt; }; then
-  (cd $V && python3 check.py $pid --tier $tier > $out/check_$pid.txt 2>$out/check_$pid.err; echo "exit=$? (tier $tier, full check; native sweep flagged nothing the restricted runs could decide)" >> $out/check_$pid.txt)
-fi
-hif [ -n "$hits" ]; then
-  (cd $V && VERIF_ONLY="$hits" python3 check.py $pid --tier $tier > $out/check_$pid.txt 2>$out/check_$pid.err; echo "exit=$? (tier $tier, restricted to the harnesses the native sweep flagged: $hits)" >> $out/check_$pid.txt)
-  if ! grep -q "^VIOLATION" $out/check_$pid.txt && [ "$tier" = quick ]; then
-    # the flagged harnesses may belong to the thorough tier only (larger bounds, slow ones)
-    (cd $V && VERIF_ONLY="$hits" python3 check.py $pid --tier thorough > $out/check_${pid}_thorough.txt 2>$out/check_${pid}_thorough.err; echo "exit=$? (tier thorough, restricted to the harnesses the native sweep flagged: $hits)" >> $out/check_${pid}_thorough.txt)
-    if grep -q "^VIOLATION" $out/check_${pid}_thorough.txt; then cp $out/check_${pid}_thorough.txt $out/check_$pid.txt; fi
-  fi
-fi
-if [ -z "$hits" ] || { ! grep -q "^VIOLATION" $out/check_$pid.txt && grep -q "no obligation was generated" $out/check_$pid.txt; }; then
-  (cd $V && python3 check.py $pid --tier $tier > $out/check_$pid.txt 2>$out/check_$pid.err; echo "exit=$? (tier $tier, full check; native sweep flagged nothing the restricted runs could decide)" >> $out/check_$pid.txt)
-fi
-eif [ -n "$hits" ]; then
-  (cd $V && VERIF_ONLY="$hits" python3 check.py $pid --tier $tier > $out/check_$pid.txt 2>$out/check_$pid.err; echo "exit=$? (tier $tier, restricted to the harnesses the native sweep flagged: $hits)" >> $out/check_$pid.txt)
-  if ! grep -q "^VIOLATION" $out/check_$pid.txt && [ "$tier" = quick ]; then
-    # the flagged harnesses may belong to the thorough tier only (larger bounds, slow ones)
-    (cd $V && VERIF_ONLY="$hits" python3 check.py $pid --tier thorough > $out/check_${pid}_thorough.txt 2>$out/check_${pid}_thorough.err; echo "exit=$? (tier thorough, restricted to the harnesses the native sweep flagged: $hits)" >> $out/check_${pid}_thorough.txt)
-    if grep -q "^VIOLATION" $out/check_${pid}_thorough.txt; then cp $out/check_${pid}_thorough.txt $out/check_$pid.txt; fi
-  fi
-fi
-if [ -z "$hits" ] || { ! grep -q "^VIOLATION" $out/check_$pid.txt && grep -q "no obligation was generated" $out/check_$pid.txt; }; then
-  (cd $V && python3 check.py $pid --tier $tier > $out/check_$pid.txt 2>$out/check_$pid.err; echo "exit=$? (tier $tier, full check; native sweep flagged nothing the restricted runs could decide)" >> $out/check_$pid.txt)
-fi
-cif [ -n "$hits" ]; then
-  (cd $V && VERIF_ONLY="$hits" python3 check.py $pid --tier $tier > $out/check_$pid.txt 2>$out/check_$pid.err; echo "exit=$? (tier $tier, restricted to the harnesses the native sweep flagged: $hits)" >> $out/check_$pid.txt)
-  if ! grep -q "^VIOLATION" $out/check_$pid.txt && [ "$tier" = quick ]; then
-    # the flagged harnesses may belong to the thorough tier only (larger bounds, slow ones)
-    (cd $V && VERIF_ONLY="$hits" python3 check.py $pid --tier thorough > $out/check_${pid}_thorough.txt 2>$out/check_${pid}_thorough.err; echo "exit=$? (tier thorough, restricted to the harnesses the native sweep flagged: $hits)" >> $out/check_${pid}_thorough.txt)
-    if grep -q "^VIOLATION" $out/check_${pid}_thorough.txt; then cp $out/check_${pid}_thorough.txt $out/check_$pid.txt; fi
-  fi
-fi
-if [ -z "$hits" ] || { ! grep -q "^VIOLATION" $out/check_$pid.txt && grep -q "no obligation was generated" $out/check_$pid.txt; }; then
-  (cd $V && python3 check.py $pid --tier $tier > $out/check_$pid.txt 2>$out/check_$pid.err; echo "exit=$? (tier $tier, full check; native sweep flagged nothing the restricted runs could decide)" >> $out/check_$pid.txt)
-fi
-kif [ -n "$hits" ]; then
-  (cd $V && VERIF_ONLY="$hits" python3 check.py $pid --tier $tier > $out/check_$pid.txt 2>$out/check_$pid.err; echo "exit=$? (tier $tier, restricted to the harnesses the native sweep flagged: $hits)" >> $out/check_$pid.txt)
-  if ! grep -q "^VIOLATION" $out/check_$pid.txt && [ "$tier" = quick ]; then
-    # the flagged harnesses may belong to the thorough tier only (larger bounds, slow ones)
-    (cd $V && VERIF_ONLY="$hits" python3 check.py $pid --tier thorough > $out/check_${pid}_thorough.txt 2>$out/check_${pid}_thorough.err; echo "exit=$? (tier thorough, restricted to the harnesses the native sweep flagged: $hits)" >> $out/check_${pid}_thorough.txt)
-    if grep -q "^VIOLATION" $out/check_${pid}_thorough.txt; then cp $out/check_${pid}_thorough.txt $out/check_$pid.txt; fi
-  fi
-fi
-if [ -z "$hits" ] || { ! grep -q "^VIOLATION" $out/check_$pid.txt && grep -q "no obligation was generated" $out/check_$pid.txt; }; then
-  (cd $V && python3 check.py $pid --tier $tier > $out/check_$pid.txt 2>$out/check_$pid.err; echo "exit=$? (tier $tier, full check; native sweep flagged nothing the restricted runs could decide)" >> $out/check_$pid.txt)
-fi
-_if [ -n "$hits" ]; then
-  (cd $V && VERIF_ONLY="$hits" python3 check.py $pid --tier $tier > $out/check_$pid.txt 2>$out/check_$pid.err; echo "exit=$? (tier $tier, restricted to the harnesses the native sweep flagged: $hits)" >> $out/check_$pid.txt)
-  if ! grep -q "^VIOLATION" $out/check_$pid.txt && [ "$tier" = quick ]; then
-    # the flagged harnesses may belong to the thorough tier only (larger bounds, slow ones)
-    (cd $V && VERIF_ONLY="$hits" python3 check.py $pid --tier thorough > $out/check_${pid}_thorough.txt 2>$out/check_${pid}_thorough.err; echo "exit=$? (tier thorough, restricted to the harnesses the native sweep flagged: $hits)" >> $out/check_${pid}_thorough.txt)
-    if grep -q "^VIOLATION" $out/check_${pid}_thorough.txt; then cp $out/check_${pid}_thorough.txt $out/check_$pid.txt; fi
-  fi
-fi
-if [ -z "$hits" ] || { ! grep -q "^VIOLATION" $out/check_$pid.txt && grep -q "no obligation was generated" $out/check_$pid.txt; }; then
-  (cd $V && python3 check.py $pid --tier $tier > $out/check_$pid.txt 2>$out/check_$pid.err; echo "exit=$? (tier $tier, full check; native sweep flagged nothing the restricted runs could decide)" >> $out/check_$pid.txt)
-fi
-$if [ -n "$hits" ]; then
-  (cd $V && VERIF_ONLY="$hits" python3 check.py $pid --tier $tier > $out/check_$pid.txt 2>$out/check_$pid.err; echo "exit=$? (tier $tier, restricted to the harnesses the native sweep flagged: $hits)" >> $out/check_$pid.txt)
-  if ! grep -q "^VIOLATION" $out/check_$pid.txt && [ "$tier" = quick ]; then
-    # the flagged harnesses may belong to the thorough tier only (larger bounds, slow ones)
-    (cd $V && VERIF_ONLY="$hits" python3 check.py $pid --tier thorough > $out/check_${pid}_thorough.txt 2>$out/check_${pid}_thorough.err; echo "exit=$? (tier thorough, restricted to the harnesses the native sweep flagged: $hits)" >> $out/check_${pid}_thorough.txt)
-    if grep -q "^VIOLATION" $out/check_${pid}_thorough.txt; then cp $out/check_${pid}_thorough.txt $out/check_$pid.txt; fi
-  fi
-fi
-if [ -z "$hits" ] || { ! grep -q "^VIOLATION" $out/check_$pid.txt && grep -q "no obligation was generated" $out/check_$pid.txt; }; then
-  (cd $V && python3 check.py $pid --tier $tier > $out/check_$pid.txt 2>$out/check_$pid.err; echo "exit=$? (tier $tier, full check; native sweep flagged nothing the restricted runs could decide)" >> $out/check_$pid.txt)
-fi
-pif [ -n "$hits" ]; then
-  (cd $V && VERIF_ONLY="$hits" python3 check.py $pid --tier $tier > $out/check_$pid.txt 2>$out/check_$pid.err; echo "exit=$? (tier $tier, restricted to the harnesses the native sweep flagged: $hits)" >> $out/check_$pid.txt)
-  if ! grep -q "^VIOLATION" $out/check_$pid.txt && [ "$tier" = quick ]; then
-    # the flagged harnesses may belong to the thorough tier only (larger bounds, slow ones)
-    (cd $V && VERIF_ONLY="$hits" python3 check.py $pid --tier thorough > $out/check_${pid}_thorough.txt 2>$out/check_${pid}_thorough.err; echo "exit=$? (tier thorough, restricted to the harnesses the native sweep flagged: $hits)" >> $out/check_${pid}_thorough.txt)
-    if grep -q "^VIOLATION" $out/check_${pid}_thorough.txt; then cp $out/check_${pid}_thorough.txt $out/check_$pid.txt; fi
-  fi
-fi
-if [ -z "$hits" ] || { ! grep -q "^VIOLATION" $out/check_$pid.txt && grep -q "no obligation was generated" $out/check_$pid.txt; }; then
-  (cd $V && python3 check.py $pid --tier $tier > $out/check_$pid.txt 2>$out/check_$pid.err; echo "exit=$? (tier $tier, full check; native sweep flagged nothing the restricted runs could decide)" >> $out/check_$pid.txt)
-fi
-iif [ -n "$hits" ]; then
-  (cd $V && VERIF_ONLY="$hits" python3 check.py $pid --tier $tier > $out/check_$pid.txt 2>$out/check_$pid.err; echo "exit=$? (tier $tier, restricted to the harnesses the native sweep flagged: $hits)" >> $out/check_$pid.txt)
-  if ! grep -q "^VIOLATION" $out/check_$pid.txt && [ "$tier" = quick ]; then
-    # the flagged harnesses may belong to the thorough tier only (larger bounds, slow ones)
-    (cd $V && VERIF_ONLY="$hits" python3 check.py $pid --tier thorough > $out/check_${pid}_thorough.txt 2>$out/check_${pid}_thorough.err; echo "exit=$? (tier thorough, restricted to the harnesses the native sweep flagged: $hits)" >> $out/check_${pid}_thorough.txt)
-    if grep -q "^VIOLATION" $out/check_${pid}_thorough.txt; then cp $out/check_${pid}_thorough.txt $out/check_$pid.txt; fi
-  fi
-fi
-if [ -z "$hits" ] || { ! grep -q "^VIOLATION" $out/check_$pid.txt && grep -q "no obligation was generated" $out/check_$pid.txt; }; then
-  (cd $V && python3 check.py $pid --tier $tier > $out/check_$pid.txt 2>$out/check_$pid.err; echo "exit=$? (tier $tier, full check; native sweep flagged nothing the restricted runs could decide)" >> $out/check_$pid.txt)
-fi
-dif [ -n "$hits" ]; then
-  (cd $V && VERIF_ONLY="$hits" python3 check.py $pid --tier $tier > $out/check_$pid.txt 2>$out/check_$pid.err; echo "exit=$? (tier $tier, restricted to the harnesses the native sweep flagged: $hits)" >> $out/check_$pid.txt)
-  if ! grep -q "^VIOLATION" $out/check_$pid.txt && [ "$tier" = quick ]; then
-    # the flagged harnesses may belong to the thorough tier only (larger bounds, slow ones)
-    (cd $V && VERIF_ONLY="$hits" python3 check.py $pid --tier thorough > $out/check_${pid}_thorough.txt 2>$out/check_${pid}_thorough.err; echo "exit=$? (tier thorough, restricted to the harnesses the native sweep flagged: $hits)" >> $out/check_${pid}_thorough.txt)
-    if grep -q "^VIOLATION" $out/check_${pid}_thorough.txt; then cp $out/check_${pid}_thorough.txt $out/check_$pid.txt; fi
-  fi
-fi
-if [ -z "$hits" ] || { ! grep -q "^VIOLATION" $out/check_$pid.txt && grep -q "no obligation was generated" $out/check_$pid.txt; }; then
-  (cd $V && python3 check.py $pid --tier $tier > $out/check_$pid.txt 2>$out/check_$pid.err; echo "exit=$? (tier $tier, full check; native sweep flagged nothing the restricted runs could decide)" >> $out/check_$pid.txt)
-fi
-.if [ -n "$hits" ]; then
-  (cd $V && VERIF_ONLY="$hits" python3 check.py $pid --tier $tier > $out/check_$pid.txt 2>$out/check_$pid.err; echo "exit=$? (tier $tier, restricted to the harnesses the native sweep flagged: $hits)" >> $out/check_$pid.txt)
-  if ! grep -q "^VIOLATION" $out/check_$pid.txt && [ "$tier" = quick ]; then
-    # the flagged harnesses may belong to the thorough tier only (larger bounds, slow ones)
-    (cd $V && VERIF_ONLY="$hits" python3 check.py $pid --tier thorough > $out/check_${pid}_thorough.txt 2>$out/check_${pid}_thorough.err; echo "exit=$? (tier thorough, restricted to the harnesses the native sweep flagged: $hits)" >> $out/check_${pid}_thorough.txt)
-    if grep -q "^VIOLATION" $out/check_${pid}_thorough.txt; then cp $out/check_${pid}_thorough.txt $out/check_$pid.txt; fi
-  fi
-fi
-if [ -z "$hits" ] || { ! grep -q "^VIOLATION" $out/check_$pid.txt && grep -q "no obligation was generated" $out/check_$pid.txt; }; then
-  (cd $V && python3 check.py $pid --tier $tier > $out/check_$pid.txt 2>$out/check_$pid.err; echo "exit=$? (tier $tier, full check; native sweep flagged nothing the restricted runs could decide)" >> $out/check_$pid.txt)
-fi
-tif [ -n "$hits" ]; then
-  (cd $V && VERIF_ONLY="$hits" python3 check.py $pid --tier $tier > $out/check_$pid.txt 2>$out/check_$pid.err; echo "exit=$? (tier $tier, restricted to the harnesses the native sweep flagged: $hits)" >> $out/check_$pid.txt)
-  if ! grep -q "^VIOLATION" $out/check_$pid.txt && [ "$tier" = quick ]; then
-    # the flagged harnesses may belong to the thorough tier only (larger bounds, slow ones)
-    (cd $V && VERIF_ONLY="$hits" python3 check.py $pid --tier thorough > $out/check_${pid}_thorough.txt 2>$out/check_${pid}_thorough.err; echo "exit=$? (tier thorough, restricted to the harnesses the native sweep flagged: $hits)" >> $out/check_${pid}_thorough.txt)
-    if grep -q "^VIOLATION" $out/check_${pid}_thorough.txt; then cp $out/check_${pid}_thorough.txt $out/check_$pid.txt; fi
-  fi
-fi
-if [ -z "$hits" ] || { ! grep -q "^VIOLATION" $out/check_$pid.txt && grep -q "no obligation was generated" $out/check_$pid.txt; }; then
-  (cd $V && python3 check.py $pid --tier $tier > $out/check_$pid.txt 2>$out/check_$pid.err; echo "exit=$? (tier $tier, full check; native sweep flagged nothing the restricted runs could decide)" >> $out/check_$pid.txt)
-fi
-xif [ -n "$hits" ]; then
-  (cd $V && VERIF_ONLY="$hits" python3 check.py $pid --tier $tier > $out/check_$pid.txt 2>$out/check_$pid.err; echo "exit=$? (tier $tier, restricted to the harnesses the native sweep flagged: $hits)" >> $out/check_$pid.txt)
-  if ! grep -q "^VIOLATION" $out/check_$pid.txt && [ "$tier" = quick ]; then
-    # the flagged harnesses may belong to the thorough tier only (larger bounds, slow ones)
-    (cd $V && VERIF_ONLY="$hits" python3 check.py $pid --tier thorough > $out/check_${pid}_thorough.txt 2>$out/check_${pid}_thorough.err; echo "exit=$? (tier thorough, restricted to the harnesses the native sweep flagged: $hits)" >> $out/check_${pid}_thorough.txt)
-    if grep -q "^VIOLATION" $out/check_${pid}_thorough.txt; then cp $out/check_${pid}_thorough.txt $out/check_$pid.txt; fi
-  fi
-fi
-if [ -z "$hits" ] || { ! grep -q "^VIOLATION" $out/check_$pid.txt && grep -q "no obligation was generated" $out/check_$pid.txt; }; then
-  (cd $V && python3 check.py $pid --tier $tier > $out/check_$pid.txt 2>$out/check_$pid.err; echo "exit=$? (tier $tier, full check; native sweep flagged nothing the restricted runs could decide)" >> $out/check_$pid.txt)
-fi
-tif [ -n "$hits" ]; then
-  (cd $V && VERIF_ONLY="$hits" python3 check.py $pid --tier $tier > $out/check_$pid.txt 2>$out/check_$pid.err; echo "exit=$? (tier $tier, restricted to the harnesses the native sweep flagged: $hits)" >> $out/check_$pid.txt)
-  if ! grep -q "^VIOLATION" $out/check_$pid.txt && [ "$tier" = quick ]; then
-    # the flagged harnesses may belong to the thorough tier only (larger bounds, slow ones)
-    (cd $V && VERIF_ONLY="$hits" python3 check.py $pid --tier thorough > $out/check_${pid}_thorough.txt 2>$out/check_${pid}_thorough.err; echo "exit=$? (tier thorough, restricted to the harnesses the native sweep flagged: $hits)" >> $out/check_${pid}_thorough.txt)
-    if grep -q "^VIOLATION" $out/check_${pid}_thorough.txt; then cp $out/check_${pid}_thorough.txt $out/check_$pid.txt; fi
-  fi
-fi
-if [ -z "$hits" ] || { ! grep -q "^VIOLATION" $out/check_$pid.txt && grep -q "no obligation was generated" $out/check_$pid.txt; }; then
-  (cd $V && python3 check.py $pid --tier $tier > $out/check_$pid.txt 2>$out/check_$pid.err; echo "exit=$? (tier $tier, full check; native sweep flagged nothing the restricted runs could decide)" >> $out/check_$pid.txt)
-fi
-)if [ -n "$hits" ]; then
-  (cd $V && VERIF_ONLY="$hits" python3 check.py $pid --tier $tier > $out/check_$pid.txt 2>$out/check_$pid.err; echo "exit=$? (tier $tier, restricted to the harnesses the native sweep flagged: $hits)" >> $out/check_$pid.txt)
-  if ! grep -q "^VIOLATION" $out/check_$pid.txt && [ "$tier" = quick ]; then
-    # the flagged harnesses may belong to the thorough tier only (larger bounds, slow ones)
-    (cd $V && VERIF_ONLY="$hits" python3 check.py $pid --tier thorough > $out/check_${pid}_thorough.txt 2>$out/check_${pid}_thorough.err; echo "exit=$? (tier thorough, restricted to the harnesses the native sweep flagged: $hits)" >> $out/check_${pid}_thorough.txt)
-    if grep -q "^VIOLATION" $out/check_${pid}_thorough.txt; then cp $out/check_${pid}_thorough.txt $out/check_$pid.txt; fi
-  fi
-fi
-if [ -z "$hits" ] || { ! grep -q "^VIOLATION" $out/check_$pid.txt && grep -q "no obligation was generated" $out/check_$pid.txt; }; then
-  (cd $V && python3 check.py $pid --tier $tier > $out/check_$pid.txt 2>$out/check_$pid.err; echo "exit=$? (tier $tier, full check; native sweep flagged nothing the restricted runs could decide)" >> $out/check_$pid.txt)
-fi
-
-if [ -n "$hits" ]; then
-  (cd $V && VERIF_ONLY="$hits" python3 check.py $pid --tier $tier > $out/check_$pid.txt 2>$out/check_$pid.err; echo "exit=$? (tier $tier, restricted to the harnesses the native sweep flagged: $hits)" >> $out/check_$pid.txt)
-  if ! grep -q "^VIOLATION" $out/check_$pid.txt && [ "$tier" = quick ]; then
-    # the flagged harnesses may belong to the thorough tier only (larger bounds, slow ones)
-    (cd $V && VERIF_ONLY="$hits" python3 check.py $pid --tier thorough > $out/check_${pid}_thorough.txt 2>$out/check_${pid}_thorough.err; echo "exit=$? (tier thorough, restricted to the harnesses the native sweep flagged: $hits)" >> $out/check_${pid}_thorough.txt)
-    if grep -q "^VIOLATION" $out/check_${pid}_thorough.txt; then cp $out/check_${pid}_thorough.txt $out/check_$pid.txt; fi
-  fi
-fi
-if [ -z "$hits" ] || { ! grep -q "^VIOLATION" $out/check_$pid.txt && grep -q "no obligation was generated" $out/check_$pid.txt; }; then
-  (cd $V && python3 check.py $pid --tier $tier > $out/check_$pid.txt 2>$out/check_$pid.err; echo "exit=$? (tier $tier, full check; native sweep flagged nothing the restricted runs could decide)" >> $out/check_$pid.txt)
-fi
-fif [ -n "$hits" ]; then
-  (cd $V && VERIF_ONLY="$hits" python3 check.py $pid --tier $tier > $out/check_$pid.txt 2>$out/check_$pid.err; echo "exit=$? (tier $tier, restricted to the harnesses the native sweep flagged: $hits)" >> $out/check_$pid.txt)
-  if ! grep -q "^VIOLATION" $out/check_$pid.txt && [ "$tier" = quick ]; then
-    # the flagged harnesses may belong to the thorough tier only (larger bounds, slow ones)
-    (cd $V && VERIF_ONLY="$hits" python3 check.py $pid --tier thorough > $out/check_${pid}_thorough.txt 2>$out/check_${pid}_thorough.err; echo "exit=$? (tier thorough, restricted to the harnesses the native sweep flagged: $hits)" >> $out/check_${pid}_thorough.txt)
-    if grep -q "^VIOLATION" $out/check_${pid}_thorough.txt; then cp $out/check_${pid}_thorough.txt $out/check_$pid.txt; fi
-  fi
-fi
-if [ -z "$hits" ] || { ! grep -q "^VIOLATION" $out/check_$pid.txt && grep -q "no obligation was generated" $out/check_$pid.txt; }; then
-  (cd $V && python3 check.py $pid --tier $tier > $out/check_$pid.txt 2>$out/check_$pid.err; echo "exit=$? (tier $tier, full check; native sweep flagged nothing the restricted runs could decide)" >> $out/check_$pid.txt)
-fi
-iif [ -n "$hits" ]; then
-  (cd $V && VERIF_ONLY="$hits" python3 check.py $pid --tier $tier > $out/check_$pid.txt 2>$out/check_$pid.err; echo "exit=$? (tier $tier, restricted to the harnesses the native sweep flagged: $hits)" >> $out/check_$pid.txt)
-  if ! grep -q "^VIOLATION" $out/check_$pid.txt && [ "$tier" = quick ]; then
-    # the flagged harnesses may belong to the thorough tier only (larger bounds, slow ones)
-    (cd $V && VERIF_ONLY="$hits" python3 check.py $pid --tier thorough > $out/check_${pid}_thorough.txt 2>$out/check_${pid}_thorough.err; echo "exit=$? (tier thorough, restricted to the harnesses the native sweep flagged: $hits)" >> $out/check_${pid}_thorough.txt)
-    if grep -q "^VIOLATION" $out/check_${pid}_thorough.txt; then cp $out/check_${pid}_thorough.txt $out/check_$pid.txt; fi
-  fi
-fi
-if [ -z "$hits" ] || { ! grep -q "^VIOLATION" $out/check_$pid.txt && grep -q "no obligation was generated" $out/check_$pid.txt; }; then
-  (cd $V && python3 check.py $pid --tier $tier > $out/check_$pid.txt 2>$out/check_$pid.err; echo "exit=$? (tier $tier, full check; native sweep flagged nothing the restricted runs could decide)" >> $out/check_$pid.txt)
-fi
-
-if [ -n "$hits" ]; then
-  (cd $V && VERIF_ONLY="$hits" python3 check.py $pid --tier $tier > $out/check_$pid.txt 2>$out/check_$pid.err; echo "exit=$? (tier $tier, restricted to the harnesses the native sweep flagged: $hits)" >> $out/check_$pid.txt)
-  if ! grep -q "^VIOLATION" $out/check_$pid.txt && [ "$tier" = quick ]; then
-    # the flagged harnesses may belong to the thorough tier only (larger bounds, slow ones)
-    (cd $V && VERIF_ONLY="$hits" python3 check.py $pid --tier thorough > $out/check_${pid}_thorough.txt 2>$out/check_${pid}_thorough.err; echo "exit=$? (tier thorough, restricted to the harnesses the native sweep flagged: $hits)" >> $out/check_${pid}_thorough.txt)
-    if grep -q "^VIOLATION" $out/check_${pid}_thorough.txt; then cp $out/check_${pid}_thorough.txt $out/check_$pid.txt; fi
-  fi
-fi
-if [ -z "$hits" ] || { ! grep -q "^VIOLATION" $out/check_$pid.txt && grep -q "no obligation was generated" $out/check_$pid.txt; }; then
-  (cd $V && python3 check.py $pid --tier $tier > $out/check_$pid.txt 2>$out/check_$pid.err; echo "exit=$? (tier $tier, full check; native sweep flagged nothing the restricted runs could decide)" >> $out/check_$pid.txt)
-fi
-gif [ -n "$hits" ]; then
-  (cd $V && VERIF_ONLY="$hits" python3 check.py $pid --tier $tier > $out/check_$pid.txt 2>$out/check_$pid.err; echo "exit=$? (tier $tier, restricted to the harnesses the native sweep flagged: $hits)" >> $out/check_$pid.txt)
-  if ! grep -q "^VIOLATION" $out/check_$pid.txt && [ "$tier" = quick ]; then
-    # the flagged harnesses may belong to the thorough tier only (larger bounds, slow ones)
-    (cd $V && VERIF_ONLY="$hits" python3 check.py $pid --tier thorough > $out/check_${pid}_thorough.txt 2>$out/check_${pid}_thorough.err; echo "exit=$? (tier thorough, restricted to the harnesses the native sweep flagged: $hits)" >> $out/check_${pid}_thorough.txt)
-    if grep -q "^VIOLATION" $out/check_${pid}_thorough.txt; then cp $out/check_${pid}_thorough.txt $out/check_$pid.txt; fi
-  fi
-fi
-if [ -z "$hits" ] || { ! grep -q "^VIOLATION" $out/check_$pid.txt && grep -q "no obligation was generated" $out/check_$pid.txt; }; then
-  (cd $V && python3 check.py $pid --tier $tier > $out/check_$pid.txt 2>$out/check_$pid.err; echo "exit=$? (tier $tier, full check; native sweep flagged nothing the restricted runs could decide)" >> $out/check_$pid.txt)
-fi
-iif [ -n "$hits" ]; then
-  (cd $V && VERIF_ONLY="$hits" python3 check.py $pid --tier $tier > $out/check_$pid.txt 2>$out/check_$pid.err; echo "exit=$? (tier $tier, restricted to the harnesses the native sweep flagged: $hits)" >> $out/check_$pid.txt)
-  if ! grep -q "^VIOLATION" $out/check_$pid.txt && [ "$tier" = quick ]; then
-    # the flagged harnesses may belong to the thorough tier only (larger bounds, slow ones)
-    (cd $V && VERIF_ONLY="$hits" python3 check.py $pid --tier thorough > $out/check_${pid}_thorough.txt 2>$out/check_${pid}_thorough.err; echo "exit=$? (tier thorough, restricted to the harnesses the native sweep flagged: $hits)" >> $out/check_${pid}_thorough.txt)
-    if grep -q "^VIOLATION" $out/check_${pid}_thorough.txt; then cp $out/check_${pid}_thorough.txt $out/check_$pid.txt; fi
-  fi
-fi
-if [ -z "$hits" ] || { ! grep -q "^VIOLATION" $out/check_$pid.txt && grep -q "no obligation was generated" $out/check_$pid.txt; }; then
-  (cd $V && python3 check.py $pid --tier $tier > $out/check_$pid.txt 2>$out/check_$pid.err; echo "exit=$? (tier $tier, full check; native sweep flagged nothing the restricted runs could decide)" >> $out/check_$pid.txt)
-fi
-tif [ -n "$hits" ]; then
-  (cd $V && VERIF_ONLY="$hits" python3 check.py $pid --tier $tier > $out/check_$pid.txt 2>$out/check_$pid.err; echo "exit=$? (tier $tier, restricted to the harnesses the native sweep flagged: $hits)" >> $out/check_$pid.txt)
-  if ! grep -q "^VIOLATION" $out/check_$pid.txt && [ "$tier" = quick ]; then
-    # the flagged harnesses may belong to the thorough tier only (larger bounds, slow ones)
-    (cd $V && VERIF_ONLY="$hits" python3 check.py $pid --tier thorough > $out/check_${pid}_thorough.txt 2>$out/check_${pid}_thorough.err; echo "exit=$? (tier thorough, restricted to the harnesses the native sweep flagged: $hits)" >> $out/check_${pid}_thorough.txt)
-    if grep -q "^VIOLATION" $out/check_${pid}_thorough.txt; then cp $out/check_${pid}_thorough.txt $out/check_$pid.txt; fi
-  fi
-fi
-if [ -z "$hits" ] || { ! grep -q "^VIOLATION" $out/check_$pid.txt && grep -q "no obligation was generated" $out/check_$pid.txt; }; then
-  (cd $V && python3 check.py $pid --tier $tier > $out/check_$pid.txt 2>$out/check_$pid.err; echo "exit=$? (tier $tier, full check; native sweep flagged nothing the restricted runs could decide)" >> $out/check_$pid.txt)
-fi
- if [ -n "$hits" ]; then
-  (cd $V && VERIF_ONLY="$hits" python3 check.py $pid --tier $tier > $out/check_$pid.txt 2>$out/check_$pid.err; echo "exit=$? (tier $tier, restricted to the harnesses the native sweep flagged: $hits)" >> $out/check_$pid.txt)
-  if ! grep -q "^VIOLATION" $out/check_$pid.txt && [ "$tier" = quick ]; then
-    # the flagged harnesses may belong to the thorough tier only (larger bounds, slow ones)
-    (cd $V && VERIF_ONLY="$hits" python3 check.py $pid --tier thorough > $out/check_${pid}_thorough.txt 2>$out/check_${pid}_thorough.err; echo "exit=$? (tier thorough, restricted to the harnesses the native sweep flagged: $hits)" >> $out/check_${pid}_thorough.txt)
-    if grep -q "^VIOLATION" $out/check_${pid}_thorough.txt; then cp $out/check_${pid}_thorough.txt $out/check_$pid.txt; fi
-  fi
-fi
-if [ -z "$hits" ] || { ! grep -q "^VIOLATION" $out/check_$pid.txt && grep -q "no obligation was generated" $out/check_$pid.txt; }; then
-  (cd $V && python3 check.py $pid --tier $tier > $out/check_$pid.txt 2>$out/check_$pid.err; echo "exit=$? (tier $tier, full check; native sweep flagged nothing the restricted runs could decide)" >> $out/check_$pid.txt)
-fi
--if [ -n "$hits" ]; then
-  (cd $V && VERIF_ONLY="$hits" python3 check.py $pid --tier $tier > $out/check_$pid.txt 2>$out/check_$pid.err; echo "exit=$? (tier $tier, restricted to the harnesses the native sweep flagged: $hits)" >> $out/check_$pid.txt)
-  if ! grep -q "^VIOLATION" $out/check_$pid.txt && [ "$tier" = quick ]; then
-    # the flagged harnesses may belong to the thorough tier only (larger bounds, slow ones)
-    (cd $V && VERIF_ONLY="$hits" python3 check.py $pid --tier thorough > $out/check_${pid}_thorough.txt 2>$out/check_${pid}_thorough.err; echo "exit=$? (tier thorough, restricted to the harnesses the native sweep flagged: $hits)" >> $out/check_${pid}_thorough.txt)
-    if grep -q "^VIOLATION" $out/check_${pid}_thorough.txt; then cp $out/check_${pid}_thorough.txt $out/check_$pid.txt; fi
-  fi
-fi
-if [ -z "$hits" ] || { ! grep -q "^VIOLATION" $out/check_$pid.txt && grep -q "no obligation was generated" $out/check_$pid.txt; }; then
-  (cd $V && python3 check.py $pid --tier $tier > $out/check_$pid.txt 2>$out/check_$pid.err; echo "exit=$? (tier $tier, full check; native sweep flagged nothing the restricted runs could decide)" >> $out/check_$pid.txt)
-fi
-Cif [ -n "$hits" ]; then
-  (cd $V && VERIF_ONLY="$hits" python3 check.py $pid --tier $tier > $out/check_$pid.txt 2>$out/check_$pid.err; echo "exit=$? (tier $tier, restricted to the harnesses the native sweep flagged: $hits)" >> $out/check_$pid.txt)
-  if ! grep -q "^VIOLATION" $out/check_$pid.txt && [ "$tier" = quick ]; then
-    # the flagged harnesses may belong to the thorough tier only (larger bounds, slow ones)
-    (cd $V && VERIF_ONLY="$hits" python3 check.py $pid --tier thorough > $out/check_${pid}_thorough.txt 2>$out/check_${pid}_thorough.err; echo "exit=$? (tier thorough, restricted to the harnesses the native sweep flagged: $hits)" >> $out/check_${pid}_thorough.txt)
-    if grep -q "^VIOLATION" $out/check_${pid}_thorough.txt; then cp $out/check_${pid}_thorough.txt $out/check_$pid.txt; fi
-  fi
-fi
-if [ -z "$hits" ] || { ! grep -q "^VIOLATION" $out/check_$pid.txt && grep -q "no obligation was generated" $out/check_$pid.txt; }; then
-  (cd $V && python3 check.py $pid --tier $tier > $out/check_$pid.txt 2>$out/check_$pid.err; echo "exit=$? (tier $tier, full check; native sweep flagged nothing the restricted runs could decide)" >> $out/check_$pid.txt)
-fi
- if [ -n "$hits" ]; then
-  (cd $V && VERIF_ONLY="$hits" python3 check.py $pid --tier $tier > $out/check_$pid.txt 2>$out/check_$pid.err; echo "exit=$? (tier $tier, restricted to the harnesses the native sweep flagged: $hits)" >> $out/check_$pid.txt)
-  if ! grep -q "^VIOLATION" $out/check_$pid.txt && [ "$tier" = quick ]; then
-    # the flagged harnesses may belong to the thorough tier only (larger bounds, slow ones)
-    (cd $V && VERIF_ONLY="$hits" python3 check.py $pid --tier thorough > $out/check_${pid}_thorough.txt 2>$out/check_${pid}_thorough.err; echo "exit=$? (tier thorough, restricted to the harnesses the native sweep flagged: $hits)" >> $out/check_${pid}_thorough.txt)
-    if grep -q "^VIOLATION" $out/check_${pid}_thorough.txt; then cp $out/check_${pid}_thorough.txt $out/check_$pid.txt; fi
-  fi
-fi
-if [ -z "$hits" ] || { ! grep -q "^VIOLATION" $out/check_$pid.txt && grep -q "no obligation was generated" $out/check_$pid.txt; }; then
-  (cd $V && python3 check.py $pid --tier $tier > $out/check_$pid.txt 2>$out/check_$pid.err; echo "exit=$? (tier $tier, full check; native sweep flagged nothing the restricted runs could decide)" >> $out/check_$pid.txt)
-fi
-$if [ -n "$hits" ]; then
-  (cd $V && VERIF_ONLY="$hits" python3 check.py $pid --tier $tier > $out/check_$pid.txt 2>$out/check_$pid.err; echo "exit=$? (tier $tier, restricted to the harnesses the native sweep flagged: $hits)" >> $out/check_$pid.txt)
-  if ! grep -q "^VIOLATION" $out/check_$pid.txt && [ "$tier" = quick ]; then
-    # the flagged harnesses may belong to the thorough tier only (larger bounds, slow ones)
-    (cd $V && VERIF_ONLY="$hits" python3 check.py $pid --tier thorough > $out/check_${pid}_thorough.txt 2>$out/check_${pid}_thorough.err; echo "exit=$? (tier thorough, restricted to the harnesses the native sweep flagged: $hits)" >> $out/check_${pid}_thorough.txt)
-    if grep -q "^VIOLATION" $out/check_${pid}_thorough.txt; then cp $out/check_${pid}_thorough.txt $out/check_$pid.txt; fi
-  fi
-fi
-if [ -z "$hits" ] || { ! grep -q "^VIOLATION" $out/check_$pid.txt && grep -q "no obligation was generated" $out/check_$pid.txt; }; then
-  (cd $V && python3 check.py $pid --tier $tier > $out/check_$pid.txt 2>$out/check_$pid.err; echo "exit=$? (tier $tier, full check; native sweep flagged nothing the restricted runs could decide)" >> $out/check_$pid.txt)
-fi
-bif [ -n "$hits" ]; then
-  (cd $V && VERIF_ONLY="$hits" python3 check.py $pid --tier $tier > $out/check_$pid.txt 2>$out/check_$pid.err; echo "exit=$? (tier $tier, restricted to the harnesses the native sweep flagged: $hits)" >> $out/check_$pid.txt)
-  if ! grep -q "^VIOLATION" $out/check_$pid.txt && [ "$tier" = quick ]; then
-    # the flagged harnesses may belong to the thorough tier only (larger bounds, slow ones)
-    (cd $V && VERIF_ONLY="$hits" python3 check.py $pid --tier thorough > $out/check_${pid}_thorough.txt 2>$out/check_${pid}_thorough.err; echo "exit=$? (tier thorough, restricted to the harnesses the native sweep flagged: $hits)" >> $out/check_${pid}_thorough.txt)
-    if grep -q "^VIOLATION" $out/check_${pid}_thorough.txt; then cp $out/check_${pid}_thorough.txt $out/check_$pid.txt; fi
-  fi
-fi
-if [ -z "$hits" ] || { ! grep -q "^VIOLATION" $out/check_$pid.txt && grep -q "no obligation was generated" $out/check_$pid.txt; }; then
-  (cd $V && python3 check.py $pid --tier $tier > $out/check_$pid.txt 2>$out/check_$pid.err; echo "exit=$? (tier $tier, full check; native sweep flagged nothing the restricted runs could decide)" >> $out/check_$pid.txt)
-fi
-aif [ -n "$hits" ]; then
-  (cd $V && VERIF_ONLY="$hits" python3 check.py $pid --tier $tier > $out/check_$pid.txt 2>$out/check_$pid.err; echo "exit=$? (tier $tier, restricted to the harnesses the native sweep flagged: $hits)" >> $out/check_$pid.txt)
-  if ! grep -q "^VIOLATION" $out/check_$pid.txt && [ "$tier" = quick ]; then
-    # the flagged harnesses may belong to the thorough tier only (larger bounds, slow ones)
-    (cd $V && VERIF_ONLY="$hits" python3 check.py $pid --tier thorough > $out/check_${pid}_thorough.txt 2>$out/check_${pid}_thorough.err; echo "exit=$? (tier thorough, restricted to the harnesses the native sweep flagged: $hits)" >> $out/check_${pid}_thorough.txt)
-    if grep -q "^VIOLATION" $out/check_${pid}_thorough.txt; then cp $out/check_${pid}_thorough.txt $out/check_$pid.txt; fi
-  fi
-fi
-if [ -z "$hits" ] || { ! grep -q "^VIOLATION" $out/check_$pid.txt && grep -q "no obligation was generated" $out/check_$pid.txt; }; then
-  (cd $V && python3 check.py $pid --tier $tier > $out/check_$pid.txt 2>$out/check_$pid.err; echo "exit=$? (tier $tier, full check; native sweep flagged nothing the restricted runs could decide)" >> $out/check_$pid.txt)
-fi
-sif [ -n "$hits" ]; then
-  (cd $V && VERIF_ONLY="$hits" python3 check.py $pid --tier $tier > $out/check_$pid.txt 2>$out/check_$pid.err; echo "exit=$? (tier $tier, restricted to the harnesses the native sweep flagged: $hits)" >> $out/check_$pid.txt)
-  if ! grep -q "^VIOLATION" $out/check_$pid.txt && [ "$tier" = quick ]; then
-    # the flagged harnesses may belong to the thorough tier only (larger bounds, slow ones)
-    (cd $V && VERIF_ONLY="$hits" python3 check.py $pid --tier thorough > $out/check_${pid}_thorough.txt 2>$out/check_${pid}_thorough.err; echo "exit=$? (tier thorough, restricted to the harnesses the native sweep flagged: $hits)" >> $out/check_${pid}_thorough.txt)
-    if grep -q "^VIOLATION" $out/check_${pid}_thorough.txt; then cp $out/check_${pid}_thorough.txt $out/check_$pid.txt; fi
-  fi
-fi
-if [ -z "$hits" ] || { ! grep -q "^VIOLATION" $out/check_$pid.txt && grep -q "no obligation was generated" $out/check_$pid.txt; }; then
-  (cd $V && python3 check.py $pid --tier $tier > $out/check_$pid.txt 2>$out/check_$pid.err; echo "exit=$? (tier $tier, full check; native sweep flagged nothing the restricted runs could decide)" >> $out/check_$pid.txt)
-fi
-eif [ -n "$hits" ]; then
-  (cd $V && VERIF_ONLY="$hits" python3 check.py $pid --tier $tier > $out/check_$pid.txt 2>$out/check_$pid.err; echo "exit=$? (tier $tier, restricted to the harnesses the native sweep flagged: $hits)" >> $out/check_$pid.txt)
-  if ! grep -q "^VIOLATION" $out/check_$pid.txt && [ "$tier" = quick ]; then
-    # the flagged harnesses may belong to the thorough tier only (larger bounds, slow ones)
-    (cd $V && VERIF_ONLY="$hits" python3 check.py $pid --tier thorough > $out/check_${pid}_thorough.txt 2>$out/check_${pid}_thorough.err; echo "exit=$? (tier thorough, restricted to the harnesses the native sweep flagged: $hits)" >> $out/check_${pid}_thorough.txt)
-    if grep -q "^VIOLATION" $out/check_${pid}_thorough.txt; then cp $out/check_${pid}_thorough.txt $out/check_$pid.txt; fi
-  fi
-fi
-if [ -z "$hits" ] || { ! grep -q "^VIOLATION" $out/check_$pid.txt && grep -q "no obligation was generated" $out/check_$pid.txt; }; then
-  (cd $V && python3 check.py $pid --tier $tier > $out/check_$pid.txt 2>$out/check_$pid.err; echo "exit=$? (tier $tier, full check; native sweep flagged nothing the restricted runs could decide)" >> $out/check_$pid.txt)
-fi
- if [ -n "$hits" ]; then
-  (cd $V && VERIF_ONLY="$hits" python3 check.py $pid --tier $tier > $out/check_$pid.txt 2>$out/check_$pid.err; echo "exit=$? (tier $tier, restricted to the harnesses the native sweep flagged: $hits)" >> $out/check_$pid.txt)
-  if ! grep -q "^VIOLATION" $out/check_$pid.txt && [ "$tier" = quick ]; then
-    # the flagged harnesses may belong to the thorough tier only (larger bounds, slow ones)
-    (cd $V && VERIF_ONLY="$hits" python3 check.py $pid --tier thorough > $out/check_${pid}_thorough.txt 2>$out/check_${pid}_thorough.err; echo "exit=$? (tier thorough, restricted to the harnesses the native sweep flagged: $hits)" >> $out/check_${pid}_thorough.txt)
-    if grep -q "^VIOLATION" $out/check_${pid}_thorough.txt; then cp $out/check_${pid}_thorough.txt $out/check_$pid.txt; fi
-  fi
-fi
-if [ -z "$hits" ] || { ! grep -q "^VIOLATION" $out/check_$pid.txt && grep -q "no obligation was generated" $out/check_$pid.txt; }; then
-  (cd $V && python3 check.py $pid --tier $tier > $out/check_$pid.txt 2>$out/check_$pid.err; echo "exit=$? (tier $tier, full check; native sweep flagged nothing the restricted runs could decide)" >> $out/check_$pid.txt)
-fi
-wif [ -n "$hits" ]; then
-  (cd $V && VERIF_ONLY="$hits" python3 check.py $pid --tier $tier > $out/check_$pid.txt 2>$out/check_$pid.err; echo "exit=$? (tier $tier, restricted to the harnesses the native sweep flagged: $hits)" >> $out/check_$pid.txt)
-  if ! grep -q "^VIOLATION" $out/check_$pid.txt && [ "$tier" = quick ]; then
-    # the flagged harnesses may belong to the thorough tier only (larger bounds, slow ones)
-    (cd $V && VERIF_ONLY="$hits" python3 check.py $pid --tier thorough > $out/check_${pid}_thorough.txt 2>$out/check_${pid}_thorough.err; echo "exit=$? (tier thorough, restricted to the harnesses the native sweep flagged: $hits)" >> $out/check_${pid}_thorough.txt)
-    if grep -q "^VIOLATION" $out/check_${pid}_thorough.txt; then cp $out/check_${pid}_thorough.txt $out/check_$pid.txt; fi
-  fi
-fi
-if [ -z "$hits" ] || { ! grep -q "^VIOLATION" $out/check_$pid.txt && grep -q "no obligation was generated" $out/check_$pid.txt; }; then
-  (cd $V && python3 check.py $pid --tier $tier > $out/check_$pid.txt 2>$out/check_$pid.err; echo "exit=$? (tier $tier, full check; native sweep flagged nothing the restricted runs could decide)" >> $out/check_$pid.txt)
-fi
-oif [ -n "$hits" ]; then
-  (cd $V && VERIF_ONLY="$hits" python3 check.py $pid --tier $tier > $out/check_$pid.txt 2>$out/check_$pid.err; echo "exit=$? (tier $tier, restricted to the harnesses the native sweep flagged: $hits)" >> $out/check_$pid.txt)
-  if ! grep -q "^VIOLATION" $out/check_$pid.txt && [ "$tier" = quick ]; then
-    # the flagged harnesses may belong to the thorough tier only (larger bounds, slow ones)
-    (cd $V && VERIF_ONLY="$hits" python3 check.py $pid --tier thorough > $out/check_${pid}_thorough.txt 2>$out/check_${pid}_thorough.err; echo "exit=$? (tier thorough, restricted to the harnesses the native sweep flagged: $hits)" >> $out/check_${pid}_thorough.txt)
-    if grep -q "^VIOLATION" $out/check_${pid}_thorough.txt; then cp $out/check_${pid}_thorough.txt $out/check_$pid.txt; fi
-  fi
-fi
-if [ -z "$hits" ] || { ! grep -q "^VIOLATION" $out/check_$pid.txt && grep -q "no obligation was generated" $out/check_$pid.txt; }; then
-  (cd $V && python3 check.py $pid --tier $tier > $out/check_$pid.txt 2>$out/check_$pid.err; echo "exit=$? (tier $tier, full check; native sweep flagged nothing the restricted runs could decide)" >> $out/check_$pid.txt)
-fi
-rif [ -n "$hits" ]; then
-  (cd $V && VERIF_ONLY="$hits" python3 check.py $pid --tier $tier > $out/check_$pid.txt 2>$out/check_$pid.err; echo "exit=$? (tier $tier, restricted to the harnesses the native sweep flagged: $hits)" >> $out/check_$pid.txt)
-  if ! grep -q "^VIOLATION" $out/check_$pid.txt && [ "$tier" = quick ]; then
-    # the flagged harnesses may belong to the thorough tier only (larger bounds, slow ones)
-    (cd $V && VERIF_ONLY="$hits" python3 check.py $pid --tier thorough > $out/check_${pid}_thorough.txt 2>$out/check_${pid}_thorough.err; echo "exit=$? (tier thorough, restricted to the harnesses the native sweep flagged: $hits)" >> $out/check_${pid}_thorough.txt)
-    if grep -q "^VIOLATION" $out/check_${pid}_thorough.txt; then cp $out/check_${pid}_thorough.txt $out/check_$pid.txt; fi
-  fi
-fi
-if [ -z "$hits" ] || { ! grep -q "^VIOLATION" $out/check_$pid.txt && grep -q "no obligation was generated" $out/check_$pid.txt; }; then
-  (cd $V && python3 check.py $pid --tier $tier > $out/check_$pid.txt 2>$out/check_$pid.err; echo "exit=$? (tier $tier, full check; native sweep flagged nothing the restricted runs could decide)" >> $out/check_$pid.txt)
-fi
-kif [ -n "$hits" ]; then
-  (cd $V && VERIF_ONLY="$hits" python3 check.py $pid --tier $tier > $out/check_$pid.txt 2>$out/check_$pid.err; echo "exit=$? (tier $tier, restricted to the harnesses the native sweep flagged: $hits)" >> $out/check_$pid.txt)
-  if ! grep -q "^VIOLATION" $out/check_$pid.txt && [ "$tier" = quick ]; then
-    # the flagged harnesses may belong to the thorough tier only (larger bounds, slow ones)
-    (cd $V && VERIF_ONLY="$hits" python3 check.py $pid --tier thorough > $out/check_${pid}_thorough.txt 2>$out/check_${pid}_thorough.err; echo "exit=$? (tier thorough, restricted to the harnesses the native sweep flagged: $hits)" >> $out/check_${pid}_thorough.txt)
-    if grep -q "^VIOLATION" $out/check_${pid}_thorough.txt; then cp $out/check_${pid}_thorough.txt $out/check_$pid.txt; fi
-  fi
-fi
-if [ -z "$hits" ] || { ! grep -q "^VIOLATION" $out/check_$pid.txt && grep -q "no obligation was generated" $out/check_$pid.txt; }; then
-  (cd $V && python3 check.py $pid --tier $tier > $out/check_$pid.txt 2>$out/check_$pid.err; echo "exit=$? (tier $tier, full check; native sweep flagged nothing the restricted runs could decide)" >> $out/check_$pid.txt)
-fi
-tif [ -n "$hits" ]; then
-  (cd $V && VERIF_ONLY="$hits" python3 check.py $pid --tier $tier > $out/check_$pid.txt 2>$out/check_$pid.err; echo "exit=$? (tier $tier, restricted to the harnesses the native sweep flagged: $hits)" >> $out/check_$pid.txt)
-  if ! grep -q "^VIOLATION" $out/check_$pid.txt && [ "$tier" = quick ]; then
-    # the flagged harnesses may belong to the thorough tier only (larger bounds, slow ones)
-    (cd $V && VERIF_ONLY="$hits" python3 check.py $pid --tier thorough > $out/check_${pid}_thorough.txt 2>$out/check_${pid}_thorough.err; echo "exit=$? (tier thorough, restricted to the harnesses the native sweep flagged: $hits)" >> $out/check_${pid}_thorough.txt)
-    if grep -q "^VIOLATION" $out/check_${pid}_thorough.txt; then cp $out/check_${pid}_thorough.txt $out/check_$pid.txt; fi
-  fi
-fi
-if [ -z "$hits" ] || { ! grep -q "^VIOLATION" $out/check_$pid.txt && grep -q "no obligation was generated" $out/check_$pid.txt; }; then
-  (cd $V && python3 check.py $pid --tier $tier > $out/check_$pid.txt 2>$out/check_$pid.err; echo "exit=$? (tier $tier, full check; native sweep flagged nothing the restricted runs could decide)" >> $out/check_$pid.txt)
-fi
-rif [ -n "$hits" ]; then
-  (cd $V && VERIF_ONLY="$hits" python3 check.py $pid --tier $tier > $out/check_$pid.txt 2>$out/check_$pid.err; echo "exit=$? (tier $tier, restricted to the harnesses the native sweep flagged: $hits)" >> $out/check_$pid.txt)
-  if ! grep -q "^VIOLATION" $out/check_$pid.txt && [ "$tier" = quick ]; then
-    # the flagged harnesses may belong to the thorough tier only (larger bounds, slow ones)
-    (cd $V && VERIF_ONLY="$hits" python3 check.py $pid --tier thorough > $out/check_${pid}_thorough.txt 2>$out/check_${pid}_thorough.err; echo "exit=$? (tier thorough, restricted to the harnesses the native sweep flagged: $hits)" >> $out/check_${pid}_thorough.txt)
-    if grep -q "^VIOLATION" $out/check_${pid}_thorough.txt; then cp $out/check_${pid}_thorough.txt $out/check_$pid.txt; fi
-  fi
-fi
-if [ -z "$hits" ] || { ! grep -q "^VIOLATION" $out/check_$pid.txt && grep -q "no obligation was generated" $out/check_$pid.txt; }; then
-  (cd $V && python3 check.py $pid --tier $tier > $out/check_$pid.txt 2>$out/check_$pid.err; echo "exit=$? (tier $tier, full check; native sweep flagged nothing the restricted runs could decide)" >> $out/check_$pid.txt)
-fi
-eif [ -n "$hits" ]; then
-  (cd $V && VERIF_ONLY="$hits" python3 check.py $pid --tier $tier > $out/check_$pid.txt 2>$out/check_$pid.err; echo "exit=$? (tier $tier, restricted to the harnesses the native sweep flagged: $hits)" >> $out/check_$pid.txt)
-  if ! grep -q "^VIOLATION" $out/check_$pid.txt && [ "$tier" = quick ]; then
-    # the flagged harnesses may belong to the thorough tier only (larger bounds, slow ones)
-    (cd $V && VERIF_ONLY="$hits" python3 check.py $pid --tier thorough > $out/check_${pid}_thorough.txt 2>$out/check_${pid}_thorough.err; echo "exit=$? (tier thorough, restricted to the harnesses the native sweep flagged: $hits)" >> $out/check_${pid}_thorough.txt)
-    if grep -q "^VIOLATION" $out/check_${pid}_thorough.txt; then cp $out/check_${pid}_thorough.txt $out/check_$pid.txt; fi
-  fi
-fi
-if [ -z "$hits" ] || { ! grep -q "^VIOLATION" $out/check_$pid.txt && grep -q "no obligation was generated" $out/check_$pid.txt; }; then
-  (cd $V && python3 check.py $pid --tier $tier > $out/check_$pid.txt 2>$out/check_$pid.err; echo "exit=$? (tier $tier, full check; native sweep flagged nothing the restricted runs could decide)" >> $out/check_$pid.txt)
-fi
-eif [ -n "$hits" ]; then
-  (cd $V && VERIF_ONLY="$hits" python3 check.py $pid --tier $tier > $out/check_$pid.txt 2>$out/check_$pid.err; echo "exit=$? (tier $tier, restricted to the harnesses the native sweep flagged: $hits)" >> $out/check_$pid.txt)
-  if ! grep -q "^VIOLATION" $out/check_$pid.txt && [ "$tier" = quick ]; then
-    # the flagged harnesses may belong to the thorough tier only (larger bounds, slow ones)
-    (cd $V && VERIF_ONLY="$hits" python3 check.py $pid --tier thorough > $out/check_${pid}_thorough.txt 2>$out/check_${pid}_thorough.err; echo "exit=$? (tier thorough, restricted to the harnesses the native sweep flagged: $hits)" >> $out/check_${pid}_thorough.txt)
-    if grep -q "^VIOLATION" $out/check_${pid}_thorough.txt; then cp $out/check_${pid}_thorough.txt $out/check_$pid.txt; fi
-  fi
-fi
-if [ -z "$hits" ] || { ! grep -q "^VIOLATION" $out/check_$pid.txt && grep -q "no obligation was generated" $out/check_$pid.txt; }; then
-  (cd $V && python3 check.py $pid --tier $tier > $out/check_$pid.txt 2>$out/check_$pid.err; echo "exit=$? (tier $tier, full check; native sweep flagged nothing the restricted runs could decide)" >> $out/check_$pid.txt)
-fi
- if [ -n "$hits" ]; then
-  (cd $V && VERIF_ONLY="$hits" python3 check.py $pid --tier $tier > $out/check_$pid.txt 2>$out/check_$pid.err; echo "exit=$? (tier $tier, restricted to the harnesses the native sweep flagged: $hits)" >> $out/check_$pid.txt)
-  if ! grep -q "^VIOLATION" $out/check_$pid.txt && [ "$tier" = quick ]; then
-    # the flagged harnesses may belong to the thorough tier only (larger bounds, slow ones)
-    (cd $V && VERIF_ONLY="$hits" python3 check.py $pid --tier thorough > $out/check_${pid}_thorough.txt 2>$out/check_${pid}_thorough.err; echo "exit=$? (tier thorough, restricted to the harnesses the native sweep flagged: $hits)" >> $out/check_${pid}_thorough.txt)
-    if grep -q "^VIOLATION" $out/check_${pid}_thorough.txt; then cp $out/check_${pid}_thorough.txt $out/check_$pid.txt; fi
-  fi
-fi
-if [ -z "$hits" ] || { ! grep -q "^VIOLATION" $out/check_$pid.txt && grep -q "no obligation was generated" $out/check_$pid.txt; }; then
-  (cd $V && python3 check.py $pid --tier $tier > $out/check_$pid.txt 2>$out/check_$pid.err; echo "exit=$? (tier $tier, full check; native sweep flagged nothing the restricted runs could decide)" >> $out/check_$pid.txt)
-fi
-rif [ -n "$hits" ]; then
-  (cd $V && VERIF_ONLY="$hits" python3 check.py $pid --tier $tier > $out/check_$pid.txt 2>$out/check_$pid.err; echo "exit=$? (tier $tier, restricted to the harnesses the native sweep flagged: $hits)" >> $out/check_$pid.txt)
-  if ! grep -q "^VIOLATION" $out/check_$pid.txt && [ "$tier" = quick ]; then
-    # the flagged harnesses may belong to the thorough tier only (larger bounds, slow ones)
-    (cd $V && VERIF_ONLY="$hits" python3 check.py $pid --tier thorough > $out/check_${pid}_thorough.txt 2>$out/check_${pid}_thorough.err; echo "exit=$? (tier thorough, restricted to the harnesses the native sweep flagged: $hits)" >> $out/check_${pid}_thorough.txt)
-    if grep -q "^VIOLATION" $out/check_${pid}_thorough.txt; then cp $out/check_${pid}_thorough.txt $out/check_$pid.txt; fi
-  fi
-fi
-if [ -z "$hits" ] || { ! grep -q "^VIOLATION" $out/check_$pid.txt && grep -q "no obligation was generated" $out/check_$pid.txt; }; then
-  (cd $V && python3 check.py $pid --tier $tier > $out/check_$pid.txt 2>$out/check_$pid.err; echo "exit=$? (tier $tier, full check; native sweep flagged nothing the restricted runs could decide)" >> $out/check_$pid.txt)
-fi
-eif [ -n "$hits" ]; then
-  (cd $V && VERIF_ONLY="$hits" python3 check.py $pid --tier $tier > $out/check_$pid.txt 2>$out/check_$pid.err; echo "exit=$? (tier $tier, restricted to the harnesses the native sweep flagged: $hits)" >> $out/check_$pid.txt)
-  if ! grep -q "^VIOLATION" $out/check_$pid.txt && [ "$tier" = quick ]; then
-    # the flagged harnesses may belong to the thorough tier only (larger bounds, slow ones)
-    (cd $V && VERIF_ONLY="$hits" python3 check.py $pid --tier thorough > $out/check_${pid}_thorough.txt 2>$out/check_${pid}_thorough.err; echo "exit=$? (tier thorough, restricted to the harnesses the native sweep flagged: $hits)" >> $out/check_${pid}_thorough.txt)
-    if grep -q "^VIOLATION" $out/check_${pid}_thorough.txt; then cp $out/check_${pid}_thorough.txt $out/check_$pid.txt; fi
-  fi
-fi
-if [ -z "$hits" ] || { ! grep -q "^VIOLATION" $out/check_$pid.txt && grep -q "no obligation was generated" $out/check_$pid.txt; }; then
-  (cd $V && python3 check.py $pid --tier $tier > $out/check_$pid.txt 2>$out/check_$pid.err; echo "exit=$? (tier $tier, full check; native sweep flagged nothing the restricted runs could decide)" >> $out/check_$pid.txt)
-fi
-mif [ -n "$hits" ]; then
-  (cd $V && VERIF_ONLY="$hits" python3 check.py $pid --tier $tier > $out/check_$pid.txt 2>$out/check_$pid.err; echo "exit=$? (tier $tier, restricted to the harnesses the native sweep flagged: $hits)" >> $out/check_$pid.txt)
-  if ! grep -q "^VIOLATION" $out/check_$pid.txt && [ "$tier" = quick ]; then
-    # the flagged harnesses may belong to the thorough tier only (larger bounds, slow ones)
-    (cd $V && VERIF_ONLY="$hits" python3 check.py $pid --tier thorough > $out/check_${pid}_thorough.txt 2>$out/check_${pid}_thorough.err; echo "exit=$? (tier thorough, restricted to the harnesses the native sweep flagged: $hits)" >> $out/check_${pid}_thorough.txt)
-    if grep -q "^VIOLATION" $out/check_${pid}_thorough.txt; then cp $out/check_${pid}_thorough.txt $out/check_$pid.txt; fi
-  fi
-fi
-if [ -z "$hits" ] || { ! grep -q "^VIOLATION" $out/check_$pid.txt && grep -q "no obligation was generated" $out/check_$pid.txt; }; then
-  (cd $V && python3 check.py $pid --tier $tier > $out/check_$pid.txt 2>$out/check_$pid.err; echo "exit=$? (tier $tier, full check; native sweep flagged nothing the restricted runs could decide)" >> $out/check_$pid.txt)
-fi
-oif [ -n "$hits" ]; then
-  (cd $V && VERIF_ONLY="$hits" python3 check.py $pid --tier $tier > $out/check_$pid.txt 2>$out/check_$pid.err; echo "exit=$? (tier $tier, restricted to the harnesses the native sweep flagged: $hits)" >> $out/check_$pid.txt)
-  if ! grep -q "^VIOLATION" $out/check_$pid.txt && [ "$tier" = quick ]; then
-    # the flagged harnesses may belong to the thorough tier only (larger bounds, slow ones)
-    (cd $V && VERIF_ONLY="$hits" python3 check.py $pid --tier thorough > $out/check_${pid}_thorough.txt 2>$out/check_${pid}_thorough.err; echo "exit=$? (tier thorough, restricted to the harnesses the native sweep flagged: $hits)" >> $out/check_${pid}_thorough.txt)
-    if grep -q "^VIOLATION" $out/check_${pid}_thorough.txt; then cp $out/check_${pid}_thorough.txt $out/check_$pid.txt; fi
-  fi
-fi
-if [ -z "$hits" ] || { ! grep -q "^VIOLATION" $out/check_$pid.txt && grep -q "no obligation was generated" $out/check_$pid.txt; }; then
-  (cd $V && python3 check.py $pid --tier $tier > $out/check_$pid.txt 2>$out/check_$pid.err; echo "exit=$? (tier $tier, full check; native sweep flagged nothing the restricted runs could decide)" >> $out/check_$pid.txt)
-fi
-vif [ -n "$hits" ]; then
-  (cd $V && VERIF_ONLY="$hits" python3 check.py $pid --tier $tier > $out/check_$pid.txt 2>$out/check_$pid.err; echo "exit=$? (tier $tier, restricted to the harnesses the native sweep flagged: $hits)" >> $out/check_$pid.txt)
-  if ! grep -q "^VIOLATION" $out/check_$pid.txt && [ "$tier" = quick ]; then
-    # the flagged harnesses may belong to the thorough tier only (larger bounds, slow ones)
-    (cd $V && VERIF_ONLY="$hits" python3 check.py $pid --tier thorough > $out/check_${pid}_thorough.txt 2>$out/check_${pid}_thorough.err; echo "exit=$? (tier thorough, restricted to the harnesses the native sweep flagged: $hits)" >> $out/check_${pid}_thorough.txt)
-    if grep -q "^VIOLATION" $out/check_${pid}_thorough.txt; then cp $out/check_${pid}_thorough.txt $out/check_$pid.txt; fi
-  fi
-fi
-if [ -z "$hits" ] || { ! grep -q "^VIOLATION" $out/check_$pid.txt && grep -q "no obligation was generated" $out/check_$pid.txt; }; then
-  (cd $V && python3 check.py $pid --tier $tier > $out/check_$pid.txt 2>$out/check_$pid.err; echo "exit=$? (tier $tier, full check; native sweep flagged nothing the restricted runs could decide)" >> $out/check_$pid.txt)
-fi
-eif [ -n "$hits" ]; then
-  (cd $V && VERIF_ONLY="$hits" python3 check.py $pid --tier $tier > $out/check_$pid.txt 2>$out/check_$pid.err; echo "exit=$? (tier $tier, restricted to the harnesses the native sweep flagged: $hits)" >> $out/check_$pid.txt)
-  if ! grep -q "^VIOLATION" $out/check_$pid.txt && [ "$tier" = quick ]; then
-    # the flagged harnesses may belong to the thorough tier only (larger bounds, slow ones)
-    (cd $V && VERIF_ONLY="$hits" python3 check.py $pid --tier thorough > $out/check_${pid}_thorough.txt 2>$out/check_${pid}_thorough.err; echo "exit=$? (tier thorough, restricted to the harnesses the native sweep flagged: $hits)" >> $out/check_${pid}_thorough.txt)
-    if grep -q "^VIOLATION" $out/check_${pid}_thorough.txt; then cp $out/check_${pid}_thorough.txt $out/check_$pid.txt; fi
-  fi
-fi
-if [ -z "$hits" ] || { ! grep -q "^VIOLATION" $out/check_$pid.txt && grep -q "no obligation was generated" $out/check_$pid.txt; }; then
-  (cd $V && python3 check.py $pid --tier $tier > $out/check_$pid.txt 2>$out/check_$pid.err; echo "exit=$? (tier $tier, full check; native sweep flagged nothing the restricted runs could decide)" >> $out/check_$pid.txt)
-fi
- if [ -n "$hits" ]; then
-  (cd $V && VERIF_ONLY="$hits" python3 check.py $pid --tier $tier > $out/check_$pid.txt 2>$out/check_$pid.err; echo "exit=$? (tier $tier, restricted to the harnesses the native sweep flagged: $hits)" >> $out/check_$pid.txt)
-  if ! grep -q "^VIOLATION" $out/check_$pid.txt && [ "$tier" = quick ]; then
-    # the flagged harnesses may belong to the thorough tier only (larger bounds, slow ones)
-    (cd $V && VERIF_ONLY="$hits" python3 check.py $pid --tier thorough > $out/check_${pid}_thorough.txt 2>$out/check_${pid}_thorough.err; echo "exit=$? (tier thorough, restricted to the harnesses the native sweep flagged: $hits)" >> $out/check_${pid}_thorough.txt)
-    if grep -q "^VIOLATION" $out/check_${pid}_thorough.txt; then cp $out/check_${pid}_thorough.txt $out/check_$pid.txt; fi
-  fi
-fi
-if [ -z "$hits" ] || { ! grep -q "^VIOLATION" $out/check_$pid.txt && grep -q "no obligation was generated" $out/check_$pid.txt; }; then
-  (cd $V && python3 check.py $pid --tier $tier > $out/check_$pid.txt 2>$out/check_$pid.err; echo "exit=$? (tier $tier, full check; native sweep flagged nothing the restricted runs could decide)" >> $out/check_$pid.txt)
-fi
--if [ -n "$hits" ]; then
-  (cd $V && VERIF_ONLY="$hits" python3 check.py $pid --tier $tier > $out/check_$pid.txt 2>$out/check_$pid.err; echo "exit=$? (tier $tier, restricted to the harnesses the native sweep flagged: $hits)" >> $out/check_$pid.txt)
-  if ! grep -q "^VIOLATION" $out/check_$pid.txt && [ "$tier" = quick ]; then
-    # the flagged harnesses may belong to the thorough tier only (larger bounds, slow ones)
-    (cd $V && VERIF_ONLY="$hits" python3 check.py $pid --tier thorough > $out/check_${pid}_thorough.txt 2>$out/check_${pid}_thorough.err; echo "exit=$? (tier thorough, restricted to the harnesses the native sweep flagged: $hits)" >> $out/check_${pid}_thorough.txt)
-    if grep -q "^VIOLATION" $out/check_${pid}_thorough.txt; then cp $out/check_${pid}_thorough.txt $out/check_$pid.txt; fi
-  fi
-fi
-if [ -z "$hits" ] || { ! grep -q "^VIOLATION" $out/check_$pid.txt && grep -q "no obligation was generated" $out/check_$pid.txt; }; then
-  (cd $V && python3 check.py $pid --tier $tier > $out/check_$pid.txt 2>$out/check_$pid.err; echo "exit=$? (tier $tier, full check; native sweep flagged nothing the restricted runs could decide)" >> $out/check_$pid.txt)
-fi
--if [ -n "$hits" ]; then
-  (cd $V && VERIF_ONLY="$hits" python3 check.py $pid --tier $tier > $out/check_$pid.txt 2>$out/check_$pid.err; echo "exit=$? (tier $tier, restricted to the harnesses the native sweep flagged: $hits)" >> $out/check_$pid.txt)
-  if ! grep -q "^VIOLATION" $out/check_$pid.txt && [ "$tier" = quick ]; then
-    # the flagged harnesses may belong to the thorough tier only (larger bounds, slow ones)
-    (cd $V && VERIF_ONLY="$hits" python3 check.py $pid --tier thorough > $out/check_${pid}_thorough.txt 2>$out/check_${pid}_thorough.err; echo "exit=$? (tier thorough, restricted to the harnesses the native sweep flagged: $hits)" >> $out/check_${pid}_thorough.txt)
-    if grep -q "^VIOLATION" $out/check_${pid}_thorough.txt; then cp $out/check_${pid}_thorough.txt $out/check_$pid.txt; fi
-  fi
-fi
-if [ -z "$hits" ] || { ! grep -q "^VIOLATION" $out/check_$pid.txt && grep -q "no obligation was generated" $out/check_$pid.txt; }; then
-  (cd $V && python3 check.py $pid --tier $tier > $out/check_$pid.txt 2>$out/check_$pid.err; echo "exit=$? (tier $tier, full check; native sweep flagged nothing the restricted runs could decide)" >> $out/check_$pid.txt)
-fi
-fif [ -n "$hits" ]; then
-  (cd $V && VERIF_ONLY="$hits" python3 check.py $pid --tier $tier > $out/check_$pid.txt 2>$out/check_$pid.err; echo "exit=$? (tier $tier, restricted to the harnesses the native sweep flagged: $hits)" >> $out/check_$pid.txt)
-  if ! grep -q "^VIOLATION" $out/check_$pid.txt && [ "$tier" = quick ]; then
-    # the flagged harnesses may belong to the thorough tier only (larger bounds, slow ones)
-    (cd $V && VERIF_ONLY="$hits" python3 check.py $pid --tier thorough > $out/check_${pid}_thorough.txt 2>$out/check_${pid}_thorough.err; echo "exit=$? (tier thorough, restricted to the harnesses the native sweep flagged: $hits)" >> $out/check_${pid}_thorough.txt)
-    if grep -q "^VIOLATION" $out/check_${pid}_thorough.txt; then cp $out/check_${pid}_thorough.txt $out/check_$pid.txt; fi
-  fi
-fi
-if [ -z "$hits" ] || { ! grep -q "^VIOLATION" $out/check_$pid.txt && grep -q "no obligation was generated" $out/check_$pid.txt; }; then
-  (cd $V && python3 check.py $pid --tier $tier > $out/check_$pid.txt 2>$out/check_$pid.err; echo "exit=$? (tier $tier, full check; native sweep flagged nothing the restricted runs could decide)" >> $out/check_$pid.txt)
-fi
-oif [ -n "$hits" ]; then
-  (cd $V && VERIF_ONLY="$hits" python3 check.py $pid --tier $tier > $out/check_$pid.txt 2>$out/check_$pid.err; echo "exit=$? (tier $tier, restricted to the harnesses the native sweep flagged: $hits)" >> $out/check_$pid.txt)
-  if ! grep -q "^VIOLATION" $out/check_$pid.txt && [ "$tier" = quick ]; then
-    # the flagged harnesses may belong to the thorough tier only (larger bounds, slow ones)
-    (cd $V && VERIF_ONLY="$hits" python3 check.py $pid --tier thorough > $out/check_${pid}_thorough.txt 2>$out/check_${pid}_thorough.err; echo "exit=$? (tier thorough, restricted to the harnesses the native sweep flagged: $hits)" >> $out/check_${pid}_thorough.txt)
-    if grep -q "^VIOLATION" $out/check_${pid}_thorough.txt; then cp $out/check_${pid}_thorough.txt $out/check_$pid.txt; fi
-  fi
-fi
-if [ -z "$hits" ] || { ! grep -q "^VIOLATION" $out/check_$pid.txt && grep -q "no obligation was generated" $out/check_$pid.txt; }; then
-  (cd $V && python3 check.py $pid --tier $tier > $out/check_$pid.txt 2>$out/check_$pid.err; echo "exit=$? (tier $tier, full check; native sweep flagged nothing the restricted runs could decide)" >> $out/check_$pid.txt)
-fi
-rif [ -n "$hits" ]; then
-  (cd $V && VERIF_ONLY="$hits" python3 check.py $pid --tier $tier > $out/check_$pid.txt 2>$out/check_$pid.err; echo "exit=$? (tier $tier, restricted to the harnesses the native sweep flagged: $hits)" >> $out/check_$pid.txt)
-  if ! grep -q "^VIOLATION" $out/check_$pid.txt && [ "$tier" = quick ]; then
-    # the flagged harnesses may belong to the thorough tier only (larger bounds, slow ones)
-    (cd $V && VERIF_ONLY="$hits" python3 check.py $pid --tier thorough > $out/check_${pid}_thorough.txt 2>$out/check_${pid}_thorough.err; echo "exit=$? (tier thorough, restricted to the harnesses the native sweep flagged: $hits)" >> $out/check_${pid}_thorough.txt)
-    if grep -q "^VIOLATION" $out/check_${pid}_thorough.txt; then cp $out/check_${pid}_thorough.txt $out/check_$pid.txt; fi
-  fi
-fi
-if [ -z "$hits" ] || { ! grep -q "^VIOLATION" $out/check_$pid.txt && grep -q "no obligation was generated" $out/check_$pid.txt; }; then
-  (cd $V && python3 check.py $pid --tier $tier > $out/check_$pid.txt 2>$out/check_$pid.err; echo "exit=$? (tier $tier, full check; native sweep flagged nothing the restricted runs could decide)" >> $out/check_$pid.txt)
-fi
-cif [ -n "$hits" ]; then
-  (cd $V && VERIF_ONLY="$hits" python3 check.py $pid --tier $tier > $out/check_$pid.txt 2>$out/check_$pid.err; echo "exit=$? (tier $tier, restricted to the harnesses the native sweep flagged: $hits)" >> $out/check_$pid.txt)
-  if ! grep -q "^VIOLATION" $out/check_$pid.txt && [ "$tier" = quick ]; then
-    # the flagged harnesses may belong to the thorough tier only (larger bounds, slow ones)
-    (cd $V && VERIF_ONLY="$hits" python3 check.py $pid --tier thorough > $out/check_${pid}_thorough.txt 2>$out/check_${pid}_thorough.err; echo "exit=$? (tier thorough, restricted to the harnesses the native sweep flagged: $hits)" >> $out/check_${pid}_thorough.txt)
-    if grep -q "^VIOLATION" $out/check_${pid}_thorough.txt; then cp $out/check_${pid}_thorough.txt $out/check_$pid.txt; fi
-  fi
-fi
-if [ -z "$hits" ] || { ! grep -q "^VIOLATION" $out/check_$pid.txt && grep -q "no obligation was generated" $out/check_$pid.txt; }; then
-  (cd $V && python3 check.py $pid --tier $tier > $out/check_$pid.txt 2>$out/check_$pid.err; echo "exit=$? (tier $tier, full check; native sweep flagged nothing the restricted runs could decide)" >> $out/check_$pid.txt)
-fi
-eif [ -n "$hits" ]; then
-  (cd $V && VERIF_ONLY="$hits" python3 check.py $pid --tier $tier > $out/check_$pid.txt 2>$out/check_$pid.err; echo "exit=$? (tier $tier, restricted to the harnesses the native sweep flagged: $hits)" >> $out/check_$pid.txt)
-  if ! grep -q "^VIOLATION" $out/check_$pid.txt && [ "$tier" = quick ]; then
-    # the flagged harnesses may belong to the thorough tier only (larger bounds, slow ones)
-    (cd $V && VERIF_ONLY="$hits" python3 check.py $pid --tier thorough > $out/check_${pid}_thorough.txt 2>$out/check_${pid}_thorough.err; echo "exit=$? (tier thorough, restricted to the harnesses the native sweep flagged: $hits)" >> $out/check_${pid}_thorough.txt)
-    if grep -q "^VIOLATION" $out/check_${pid}_thorough.txt; then cp $out/check_${pid}_thorough.txt $out/check_$pid.txt; fi
-  fi
-fi
-if [ -z "$hits" ] || { ! grep -q "^VIOLATION" $out/check_$pid.txt && grep -q "no obligation was generated" $out/check_$pid.txt; }; then
-  (cd $V && python3 check.py $pid --tier $tier > $out/check_$pid.txt 2>$out/check_$pid.err; echo "exit=$? (tier $tier, full check; native sweep flagged nothing the restricted runs could decide)" >> $out/check_$pid.txt)
-fi
- if [ -n "$hits" ]; then
-  (cd $V && VERIF_ONLY="$hits" python3 check.py $pid --tier $tier > $out/check_$pid.txt 2>$out/check_$pid.err; echo "exit=$? (tier $tier, restricted to the harnesses the native sweep flagged: $hits)" >> $out/check_$pid.txt)
-  if ! grep -q "^VIOLATION" $out/check_$pid.txt && [ "$tier" = quick ]; then
-    # the flagged harnesses may belong to the thorough tier only (larger bounds, slow ones)
-    (cd $V && VERIF_ONLY="$hits" python3 check.py $pid --tier thorough > $out/check_${pid}_thorough.txt 2>$out/check_${pid}_thorough.err; echo "exit=$? (tier thorough, restricted to the harnesses the native sweep flagged: $hits)" >> $out/check_${pid}_thorough.txt)
-    if grep -q "^VIOLATION" $out/check_${pid}_thorough.txt; then cp $out/check_${pid}_thorough.txt $out/check_$pid.txt; fi
-  fi
-fi
-if [ -z "$hits" ] || { ! grep -q "^VIOLATION" $out/check_$pid.txt && grep -q "no obligation was generated" $out/check_$pid.txt; }; then
-  (cd $V && python3 check.py $pid --tier $tier > $out/check_$pid.txt 2>$out/check_$pid.err; echo "exit=$? (tier $tier, full check; native sweep flagged nothing the restricted runs could decide)" >> $out/check_$pid.txt)
-fi
-$if [ -n "$hits" ]; then
-  (cd $V && VERIF_ONLY="$hits" python3 check.py $pid --tier $tier > $out/check_$pid.txt 2>$out/check_$pid.err; echo "exit=$? (tier $tier, restricted to the harnesses the native sweep flagged: $hits)" >> $out/check_$pid.txt)
-  if ! grep -q "^VIOLATION" $out/check_$pid.txt && [ "$tier" = quick ]; then
-    # the flagged harnesses may belong to the thorough tier only (larger bounds, slow ones)
-    (cd $V && VERIF_ONLY="$hits" python3 check.py $pid --tier thorough > $out/check_${pid}_thorough.txt 2>$out/check_${pid}_thorough.err; echo "exit=$? (tier thorough, restricted to the harnesses the native sweep flagged: $hits)" >> $out/check_${pid}_thorough.txt)
-    if grep -q "^VIOLATION" $out/check_${pid}_thorough.txt; then cp $out/check_${pid}_thorough.txt $out/check_$pid.txt; fi
-  fi
-fi
-if [ -z "$hits" ] || { ! grep -q "^VIOLATION" $out/check_$pid.txt && grep -q "no obligation was generated" $out/check_$pid.txt; }; then
-  (cd $V && python3 check.py $pid --tier $tier > $out/check_$pid.txt 2>$out/check_$pid.err; echo "exit=$? (tier $tier, full check; native sweep flagged nothing the restricted runs could decide)" >> $out/check_$pid.txt)
-fi
-wif [ -n "$hits" ]; then
-  (cd $V && VERIF_ONLY="$hits" python3 check.py $pid --tier $tier > $out/check_$pid.txt 2>$out/check_$pid.err; echo "exit=$? (tier $tier, restricted to the harnesses the native sweep flagged: $hits)" >> $out/check_$pid.txt)
-  if ! grep -q "^VIOLATION" $out/check_$pid.txt && [ "$tier" = quick ]; then
-    # the flagged harnesses may belong to the thorough tier only (larger bounds, slow ones)
-    (cd $V && VERIF_ONLY="$hits" python3 check.py $pid --tier thorough > $out/check_${pid}_thorough.txt 2>$out/check_${pid}_thorough.err; echo "exit=$? (tier thorough, restricted to the harnesses the native sweep flagged: $hits)" >> $out/check_${pid}_thorough.txt)
-    if grep -q "^VIOLATION" $out/check_${pid}_thorough.txt; then cp $out/check_${pid}_thorough.txt $out/check_$pid.txt; fi
-  fi
-fi
-if [ -z "$hits" ] || { ! grep -q "^VIOLATION" $out/check_$pid.txt && grep -q "no obligation was generated" $out/check_$pid.txt; }; then
-  (cd $V && python3 check.py $pid --tier $tier > $out/check_$pid.txt 2>$out/check_$pid.err; echo "exit=$? (tier $tier, full check; native sweep flagged nothing the restricted runs could decide)" >> $out/check_$pid.txt)
-fi
-tif [ -n "$hits" ]; then
-  (cd $V && VERIF_ONLY="$hits" python3 check.py $pid --tier $tier > $out/check_$pid.txt 2>$out/check_$pid.err; echo "exit=$? (tier $tier, restricted to the harnesses the native sweep flagged: $hits)" >> $out/check_$pid.txt)
-  if ! grep -q "^VIOLATION" $out/check_$pid.txt && [ "$tier" = quick ]; then
-    # the flagged harnesses may belong to the thorough tier only (larger bounds, slow ones)
-    (cd $V && VERIF_ONLY="$hits" python3 check.py $pid --tier thorough > $out/check_${pid}_thorough.txt 2>$out/check_${pid}_thorough.err; echo "exit=$? (tier thorough, restricted to the harnesses the native sweep flagged: $hits)" >> $out/check_${pid}_thorough.txt)
-    if grep -q "^VIOLATION" $out/check_${pid}_thorough.txt; then cp $out/check_${pid}_thorough.txt $out/check_$pid.txt; fi
-  fi
-fi
-if [ -z "$hits" ] || { ! grep -q "^VIOLATION" $out/check_$pid.txt && grep -q "no obligation was generated" $out/check_$pid.txt; }; then
-  (cd $V && python3 check.py $pid --tier $tier > $out/check_$pid.txt 2>$out/check_$pid.err; echo "exit=$? (tier $tier, full check; native sweep flagged nothing the restricted runs could decide)" >> $out/check_$pid.txt)
-fi
-
-if [ -n "$hits" ]; then
-  (cd $V && VERIF_ONLY="$hits" python3 check.py $pid --tier $tier > $out/check_$pid.txt 2>$out/check_$pid.err; echo "exit=$? (tier $tier, restricted to the harnesses the native sweep flagged: $hits)" >> $out/check_$pid.txt)
-  if ! grep -q "^VIOLATION" $out/check_$pid.txt && [ "$tier" = quick ]; then
-    # the flagged harnesses may belong to the thorough tier only (larger bounds, slow ones)
-    (cd $V && VERIF_ONLY="$hits" python3 check.py $pid --tier thorough > $out/check_${pid}_thorough.txt 2>$out/check_${pid}_thorough.err; echo "exit=$? (tier thorough, restricted to the harnesses the native sweep flagged: $hits)" >> $out/check_${pid}_thorough.txt)
-    if grep -q "^VIOLATION" $out/check_${pid}_thorough.txt; then cp $out/check_${pid}_thorough.txt $out/check_$pid.txt; fi
-  fi
-fi
-if [ -z "$hits" ] || { ! grep -q "^VIOLATION" $out/check_$pid.txt && grep -q "no obligation was generated" $out/check_$pid.txt; }; then
-  (cd $V && python3 check.py $pid --tier $tier > $out/check_$pid.txt 2>$out/check_$pid.err; echo "exit=$? (tier $tier, full check; native sweep flagged nothing the restricted runs could decide)" >> $out/check_$pid.txt)
-fi
-rif [ -n "$hits" ]; then
-  (cd $V && VERIF_ONLY="$hits" python3 check.py $pid --tier $tier > $out/check_$pid.txt 2>$out/check_$pid.err; echo "exit=$? (tier $tier, restricted to the harnesses the native sweep flagged: $hits)" >> $out/check_$pid.txt)
-  if ! grep -q "^VIOLATION" $out/check_$pid.txt && [ "$tier" = quick ]; then
-    # the flagged harnesses may belong to the thorough tier only (larger bounds, slow ones)
-    (cd $V && VERIF_ONLY="$hits" python3 check.py $pid --tier thorough > $out/check_${pid}_thorough.txt 2>$out/check_${pid}_thorough.err; echo "exit=$? (tier thorough, restricted to the harnesses the native sweep flagged: $hits)" >> $out/check_${pid}_thorough.txt)
-    if grep -q "^VIOLATION" $out/check_${pid}_thorough.txt; then cp $out/check_${pid}_thorough.txt $out/check_$pid.txt; fi
-  fi
-fi
-if [ -z "$hits" ] || { ! grep -q "^VIOLATION" $out/check_$pid.txt && grep -q "no obligation was generated" $out/check_$pid.txt; }; then
-  (cd $V && python3 check.py $pid --tier $tier > $out/check_$pid.txt 2>$out/check_$pid.err; echo "exit=$? (tier $tier, full check; native sweep flagged nothing the restricted runs could decide)" >> $out/check_$pid.txt)
-fi
-mif [ -n "$hits" ]; then
-  (cd $V && VERIF_ONLY="$hits" python3 check.py $pid --tier $tier > $out/check_$pid.txt 2>$out/check_$pid.err; echo "exit=$? (tier $tier, restricted to the harnesses the native sweep flagged: $hits)" >> $out/check_$pid.txt)
-  if ! grep -q "^VIOLATION" $out/check_$pid.txt && [ "$tier" = quick ]; then
-    # the flagged harnesses may belong to the thorough tier only (larger bounds, slow ones)
-    (cd $V && VERIF_ONLY="$hits" python3 check.py $pid --tier thorough > $out/check_${pid}_thorough.txt 2>$out/check_${pid}_thorough.err; echo "exit=$? (tier thorough, restricted to the harnesses the native sweep flagged: $hits)" >> $out/check_${pid}_thorough.txt)
-    if grep -q "^VIOLATION" $out/check_${pid}_thorough.txt; then cp $out/check_${pid}_thorough.txt $out/check_$pid.txt; fi
-  fi
-fi
-if [ -z "$hits" ] || { ! grep -q "^VIOLATION" $out/check_$pid.txt && grep -q "no obligation was generated" $out/check_$pid.txt; }; then
-  (cd $V && python3 check.py $pid --tier $tier > $out/check_$pid.txt 2>$out/check_$pid.err; echo "exit=$? (tier $tier, full check; native sweep flagged nothing the restricted runs could decide)" >> $out/check_$pid.txt)
-fi
- if [ -n "$hits" ]; then
-  (cd $V && VERIF_ONLY="$hits" python3 check.py $pid --tier $tier > $out/check_$pid.txt 2>$out/check_$pid.err; echo "exit=$? (tier $tier, restricted to the harnesses the native sweep flagged: $hits)" >> $out/check_$pid.txt)
-  if ! grep -q "^VIOLATION" $out/check_$pid.txt && [ "$tier" = quick ]; then
-    # the flagged harnesses may belong to the thorough tier only (larger bounds, slow ones)
-    (cd $V && VERIF_ONLY="$hits" python3 check.py $pid --tier thorough > $out/check_${pid}_thorough.txt 2>$out/check_${pid}_thorough.err; echo "exit=$? (tier thorough, restricted to the harnesses the native sweep flagged: $hits)" >> $out/check_${pid}_thorough.txt)
-    if grep -q "^VIOLATION" $out/check_${pid}_thorough.txt; then cp $out/check_${pid}_thorough.txt $out/check_$pid.txt; fi
-  fi
-fi
-if [ -z "$hits" ] || { ! grep -q "^VIOLATION" $out/check_$pid.txt && grep -q "no obligation was generated" $out/check_$pid.txt; }; then
-  (cd $V && python3 check.py $pid --tier $tier > $out/check_$pid.txt 2>$out/check_$pid.err; echo "exit=$? (tier $tier, full check; native sweep flagged nothing the restricted runs could decide)" >> $out/check_$pid.txt)
-fi
--if [ -n "$hits" ]; then
-  (cd $V && VERIF_ONLY="$hits" python3 check.py $pid --tier $tier > $out/check_$pid.txt 2>$out/check_$pid.err; echo "exit=$? (tier $tier, restricted to the harnesses the native sweep flagged: $hits)" >> $out/check_$pid.txt)
-  if ! grep -q "^VIOLATION" $out/check_$pid.txt && [ "$tier" = quick ]; then
-    # the flagged harnesses may belong to the thorough tier only (larger bounds, slow ones)
-    (cd $V && VERIF_ONLY="$hits" python3 check.py $pid --tier thorough > $out/check_${pid}_thorough.txt 2>$out/check_${pid}_thorough.err; echo "exit=$? (tier thorough, restricted to the harnesses the native sweep flagged: $hits)" >> $out/check_${pid}_thorough.txt)
-    if grep -q "^VIOLATION" $out/check_${pid}_thorough.txt; then cp $out/check_${pid}_thorough.txt $out/check_$pid.txt; fi
-  fi
-fi
-if [ -z "$hits" ] || { ! grep -q "^VIOLATION" $out/check_$pid.txt && grep -q "no obligation was generated" $out/check_$pid.txt; }; then
-  (cd $V && python3 check.py $pid --tier $tier > $out/check_$pid.txt 2>$out/check_$pid.err; echo "exit=$? (tier $tier, full check; native sweep flagged nothing the restricted runs could decide)" >> $out/check_$pid.txt)
-fi
-rif [ -n "$hits" ]; then
-  (cd $V && VERIF_ONLY="$hits" python3 check.py $pid --tier $tier > $out/check_$pid.txt 2>$out/check_$pid.err; echo "exit=$? (tier $tier, restricted to the harnesses the native sweep flagged: $hits)" >> $out/check_$pid.txt)
-  if ! grep -q "^VIOLATION" $out/check_$pid.txt && [ "$tier" = quick ]; then
-    # the flagged harnesses may belong to the thorough tier only (larger bounds, slow ones)
-    (cd $V && VERIF_ONLY="$hits" python3 check.py $pid --tier thorough > $out/check_${pid}_thorough.txt 2>$out/check_${pid}_thorough.err; echo "exit=$? (tier thorough, restricted to the harnesses the native sweep flagged: $hits)" >> $out/check_${pid}_thorough.txt)
-    if grep -q "^VIOLATION" $out/check_${pid}_thorough.txt; then cp $out/check_${pid}_thorough.txt $out/check_$pid.txt; fi
-  fi
-fi
-if [ -z "$hits" ] || { ! grep -q "^VIOLATION" $out/check_$pid.txt && grep -q "no obligation was generated" $out/check_$pid.txt; }; then
-  (cd $V && python3 check.py $pid --tier $tier > $out/check_$pid.txt 2>$out/check_$pid.err; echo "exit=$? (tier $tier, full check; native sweep flagged nothing the restricted runs could decide)" >> $out/check_$pid.txt)
-fi
-fif [ -n "$hits" ]; then
-  (cd $V && VERIF_ONLY="$hits" python3 check.py $pid --tier $tier > $out/check_$pid.txt 2>$out/check_$pid.err; echo "exit=$? (tier $tier, restricted to the harnesses the native sweep flagged: $hits)" >> $out/check_$pid.txt)
-  if ! grep -q "^VIOLATION" $out/check_$pid.txt && [ "$tier" = quick ]; then
-    # the flagged harnesses may belong to the thorough tier only (larger bounds, slow ones)
-    (cd $V && VERIF_ONLY="$hits" python3 check.py $pid --tier thorough > $out/check_${pid}_thorough.txt 2>$out/check_${pid}_thorough.err; echo "exit=$? (tier thorough, restricted to the harnesses the native sweep flagged: $hits)" >> $out/check_${pid}_thorough.txt)
-    if grep -q "^VIOLATION" $out/check_${pid}_thorough.txt; then cp $out/check_${pid}_thorough.txt $out/check_$pid.txt; fi
-  fi
-fi
-if [ -z "$hits" ] || { ! grep -q "^VIOLATION" $out/check_$pid.txt && grep -q "no obligation was generated" $out/check_$pid.txt; }; then
-  (cd $V && python3 check.py $pid --tier $tier > $out/check_$pid.txt 2>$out/check_$pid.err; echo "exit=$? (tier $tier, full check; native sweep flagged nothing the restricted runs could decide)" >> $out/check_$pid.txt)
-fi
- if [ -n "$hits" ]; then
-  (cd $V && VERIF_ONLY="$hits" python3 check.py $pid --tier $tier > $out/check_$pid.txt 2>$out/check_$pid.err; echo "exit=$? (tier $tier, restricted to the harnesses the native sweep flagged: $hits)" >> $out/check_$pid.txt)
-  if ! grep -q "^VIOLATION" $out/check_$pid.txt && [ "$tier" = quick ]; then
-    # the flagged harnesses may belong to the thorough tier only (larger bounds, slow ones)
-    (cd $V && VERIF_ONLY="$hits" python3 check.py $pid --tier thorough > $out/check_${pid}_thorough.txt 2>$out/check_${pid}_thorough.err; echo "exit=$? (tier thorough, restricted to the harnesses the native sweep flagged: $hits)" >> $out/check_${pid}_thorough.txt)
-    if grep -q "^VIOLATION" $out/check_${pid}_thorough.txt; then cp $out/check_${pid}_thorough.txt $out/check_$pid.txt; fi
-  fi
-fi
-if [ -z "$hits" ] || { ! grep -q "^VIOLATION" $out/check_$pid.txt && grep -q "no obligation was generated" $out/check_$pid.txt; }; then
-  (cd $V && python3 check.py $pid --tier $tier > $out/check_$pid.txt 2>$out/check_$pid.err; echo "exit=$? (tier $tier, full check; native sweep flagged nothing the restricted runs could decide)" >> $out/check_$pid.txt)
-fi
-/if [ -n "$hits" ]; then
-  (cd $V && VERIF_ONLY="$hits" python3 check.py $pid --tier $tier > $out/check_$pid.txt 2>$out/check_$pid.err; echo "exit=$? (tier $tier, restricted to the harnesses the native sweep flagged: $hits)" >> $out/check_$pid.txt)
-  if ! grep -q "^VIOLATION" $out/check_$pid.txt && [ "$tier" = quick ]; then
-    # the flagged harnesses may belong to the thorough tier only (larger bounds, slow ones)
-    (cd $V && VERIF_ONLY="$hits" python3 check.py $pid --tier thorough > $out/check_${pid}_thorough.txt 2>$out/check_${pid}_thorough.err; echo "exit=$? (tier thorough, restricted to the harnesses the native sweep flagged: $hits)" >> $out/check_${pid}_thorough.txt)
-    if grep -q "^VIOLATION" $out/check_${pid}_thorough.txt; then cp $out/check_${pid}_thorough.txt $out/check_$pid.txt; fi
-  fi
-fi
-if [ -z "$hits" ] || { ! grep -q "^VIOLATION" $out/check_$pid.txt && grep -q "no obligation was generated" $out/check_$pid.txt; }; then
-  (cd $V && python3 check.py $pid --tier $tier > $out/check_$pid.txt 2>$out/check_$pid.err; echo "exit=$? (tier $tier, full check; native sweep flagged nothing the restricted runs could decide)" >> $out/check_$pid.txt)
-fi
-tif [ -n "$hits" ]; then
-  (cd $V && VERIF_ONLY="$hits" python3 check.py $pid --tier $tier > $out/check_$pid.txt 2>$out/check_$pid.err; echo "exit=$? (tier $tier, restricted to the harnesses the native sweep flagged: $hits)" >> $out/check_$pid.txt)
-  if ! grep -q "^VIOLATION" $out/check_$pid.txt && [ "$tier" = quick ]; then
-    # the flagged harnesses may belong to the thorough tier only (larger bounds, slow ones)
-    (cd $V && VERIF_ONLY="$hits" python3 check.py $pid --tier thorough > $out/check_${pid}_thorough.txt 2>$out/check_${pid}_thorough.err; echo "exit=$? (tier thorough, restricted to the harnesses the native sweep flagged: $hits)" >> $out/check_${pid}_thorough.txt)
-    if grep -q "^VIOLATION" $out/check_${pid}_thorough.txt; then cp $out/check_${pid}_thorough.txt $out/check_$pid.txt; fi
-  fi
-fi
-if [ -z "$hits" ] || { ! grep -q "^VIOLATION" $out/check_$pid.txt && grep -q "no obligation was generated" $out/check_$pid.txt; }; then
-  (cd $V && python3 check.py $pid --tier $tier > $out/check_$pid.txt 2>$out/check_$pid.err; echo "exit=$? (tier $tier, full check; native sweep flagged nothing the restricted runs could decide)" >> $out/check_$pid.txt)
-fi
-mif [ -n "$hits" ]; then
-  (cd $V && VERIF_ONLY="$hits" python3 check.py $pid --tier $tier > $out/check_$pid.txt 2>$out/check_$pid.err; echo "exit=$? (tier $tier, restricted to the harnesses the native sweep flagged: $hits)" >> $out/check_$pid.txt)
-  if ! grep -q "^VIOLATION" $out/check_$pid.txt && [ "$tier" = quick ]; then
-    # the flagged harnesses may belong to the thorough tier only (larger bounds, slow ones)
-    (cd $V && VERIF_ONLY="$hits" python3 check.py $pid --tier thorough > $out/check_${pid}_thorough.txt 2>$out/check_${pid}_thorough.err; echo "exit=$? (tier thorough, restricted to the harnesses the native sweep flagged: $hits)" >> $out/check_${pid}_thorough.txt)
-    if grep -q "^VIOLATION" $out/check_${pid}_thorough.txt; then cp $out/check_${pid}_thorough.txt $out/check_$pid.txt; fi
-  fi
-fi
-if [ -z "$hits" ] || { ! grep -q "^VIOLATION" $out/check_$pid.txt && grep -q "no obligation was generated" $out/check_$pid.txt; }; then
-  (cd $V && python3 check.py $pid --tier $tier > $out/check_$pid.txt 2>$out/check_$pid.err; echo "exit=$? (tier $tier, full check; native sweep flagged nothing the restricted runs could decide)" >> $out/check_$pid.txt)
-fi
-pif [ -n "$hits" ]; then
-  (cd $V && VERIF_ONLY="$hits" python3 check.py $pid --tier $tier > $out/check_$pid.txt 2>$out/check_$pid.err; echo "exit=$? (tier $tier, restricted to the harnesses the native sweep flagged: $hits)" >> $out/check_$pid.txt)
-  if ! grep -q "^VIOLATION" $out/check_$pid.txt && [ "$tier" = quick ]; then
-    # the flagged harnesses may belong to the thorough tier only (larger bounds, slow ones)
-    (cd $V && VERIF_ONLY="$hits" python3 check.py $pid --tier thorough > $out/check_${pid}_thorough.txt 2>$out/check_${pid}_thorough.err; echo "exit=$? (tier thorough, restricted to the harnesses the native sweep flagged: $hits)" >> $out/check_${pid}_thorough.txt)
-    if grep -q "^VIOLATION" $out/check_${pid}_thorough.txt; then cp $out/check_${pid}_thorough.txt $out/check_$pid.txt; fi
-  fi
-fi
-if [ -z "$hits" ] || { ! grep -q "^VIOLATION" $out/check_$pid.txt && grep -q "no obligation was generated" $out/check_$pid.txt; }; then
-  (cd $V && python3 check.py $pid --tier $tier > $out/check_$pid.txt 2>$out/check_$pid.err; echo "exit=$? (tier $tier, full check; native sweep flagged nothing the restricted runs could decide)" >> $out/check_$pid.txt)
-fi
-/if [ -n "$hits" ]; then
-  (cd $V && VERIF_ONLY="$hits" python3 check.py $pid --tier $tier > $out/check_$pid.txt 2>$out/check_$pid.err; echo "exit=$? (tier $tier, restricted to the harnesses the native sweep flagged: $hits)" >> $out/check_$pid.txt)
-  if ! grep -q "^VIOLATION" $out/check_$pid.txt && [ "$tier" = quick ]; then
-    # the flagged harnesses may belong to the thorough tier only (larger bounds, slow ones)
-    (cd $V && VERIF_ONLY="$hits" python3 check.py $pid --tier thorough > $out/check_${pid}_thorough.txt 2>$out/check_${pid}_thorough.err; echo "exit=$? (tier thorough, restricted to the harnesses the native sweep flagged: $hits)" >> $out/check_${pid}_thorough.txt)
-    if grep -q "^VIOLATION" $out/check_${pid}_thorough.txt; then cp $out/check_${pid}_thorough.txt $out/check_$pid.txt; fi
-  fi
-fi
-if [ -z "$hits" ] || { ! grep -q "^VIOLATION" $out/check_$pid.txt && grep -q "no obligation was generated" $out/check_$pid.txt; }; then
-  (cd $V && python3 check.py $pid --tier $tier > $out/check_$pid.txt 2>$out/check_$pid.err; echo "exit=$? (tier $tier, full check; native sweep flagged nothing the restricted runs could decide)" >> $out/check_$pid.txt)
-fi
-sif [ -n "$hits" ]; then
-  (cd $V && VERIF_ONLY="$hits" python3 check.py $pid --tier $tier > $out/check_$pid.txt 2>$out/check_$pid.err; echo "exit=$? (tier $tier, restricted to the harnesses the native sweep flagged: $hits)" >> $out/check_$pid.txt)
-  if ! grep -q "^VIOLATION" $out/check_$pid.txt && [ "$tier" = quick ]; then
-    # the flagged harnesses may belong to the thorough tier only (larger bounds, slow ones)
-    (cd $V && VERIF_ONLY="$hits" python3 check.py $pid --tier thorough > $out/check_${pid}_thorough.txt 2>$out/check_${pid}_thorough.err; echo "exit=$? (tier thorough, restricted to the harnesses the native sweep flagged: $hits)" >> $out/check_${pid}_thorough.txt)
-    if grep -q "^VIOLATION" $out/check_${pid}_thorough.txt; then cp $out/check_${pid}_thorough.txt $out/check_$pid.txt; fi
-  fi
-fi
-if [ -z "$hits" ] || { ! grep -q "^VIOLATION" $out/check_$pid.txt && grep -q "no obligation was generated" $out/check_$pid.txt; }; then
-  (cd $V && python3 check.py $pid --tier $tier > $out/check_$pid.txt 2>$out/check_$pid.err; echo "exit=$? (tier $tier, full check; native sweep flagged nothing the restricted runs could decide)" >> $out/check_$pid.txt)
-fi
-eif [ -n "$hits" ]; then
-  (cd $V && VERIF_ONLY="$hits" python3 check.py $pid --tier $tier > $out/check_$pid.txt 2>$out/check_$pid.err; echo "exit=$? (tier $tier, restricted to the harnesses the native sweep flagged: $hits)" >> $out/check_$pid.txt)
-  if ! grep -q "^VIOLATION" $out/check_$pid.txt && [ "$tier" = quick ]; then
-    # the flagged harnesses may belong to the thorough tier only (larger bounds, slow ones)
-    (cd $V && VERIF_ONLY="$hits" python3 check.py $pid --tier thorough > $out/check_${pid}_thorough.txt 2>$out/check_${pid}_thorough.err; echo "exit=$? (tier thorough, restricted to the harnesses the native sweep flagged: $hits)" >> $out/check_${pid}_thorough.txt)
-    if grep -q "^VIOLATION" $out/check_${pid}_thorough.txt; then cp $out/check_${pid}_thorough.txt $out/check_$pid.txt; fi
-  fi
-fi
-if [ -z "$hits" ] || { ! grep -q "^VIOLATION" $out/check_$pid.txt && grep -q "no obligation was generated" $out/check_$pid.txt; }; then
-  (cd $V && python3 check.py $pid --tier $tier > $out/check_$pid.txt 2>$out/check_$pid.err; echo "exit=$? (tier $tier, full check; native sweep flagged nothing the restricted runs could decide)" >> $out/check_$pid.txt)
-fi
-eif [ -n "$hits" ]; then
-  (cd $V && VERIF_ONLY="$hits" python3 check.py $pid --tier $tier > $out/check_$pid.txt 2>$out/check_$pid.err; echo "exit=$? (tier $tier, restricted to the harnesses the native sweep flagged: $hits)" >> $out/check_$pid.txt)
-  if ! grep -q "^VIOLATION" $out/check_$pid.txt && [ "$tier" = quick ]; then
-    # the flagged harnesses may belong to the thorough tier only (larger bounds, slow ones)
-    (cd $V && VERIF_ONLY="$hits" python3 check.py $pid --tier thorough > $out/check_${pid}_thorough.txt 2>$out/check_${pid}_thorough.err; echo "exit=$? (tier thorough, restricted to the harnesses the native sweep flagged: $hits)" >> $out/check_${pid}_thorough.txt)
-    if grep -q "^VIOLATION" $out/check_${pid}_thorough.txt; then cp $out/check_${pid}_thorough.txt $out/check_$pid.txt; fi
-  fi
-fi
-if [ -z "$hits" ] || { ! grep -q "^VIOLATION" $out/check_$pid.txt && grep -q "no obligation was generated" $out/check_$pid.txt; }; then
-  (cd $V && python3 check.py $pid --tier $tier > $out/check_$pid.txt 2>$out/check_$pid.err; echo "exit=$? (tier $tier, full check; native sweep flagged nothing the restricted runs could decide)" >> $out/check_$pid.txt)
-fi
-dif [ -n "$hits" ]; then
-  (cd $V && VERIF_ONLY="$hits" python3 check.py $pid --tier $tier > $out/check_$pid.txt 2>$out/check_$pid.err; echo "exit=$? (tier $tier, restricted to the harnesses the native sweep flagged: $hits)" >> $out/check_$pid.txt)
-  if ! grep -q "^VIOLATION" $out/check_$pid.txt && [ "$tier" = quick ]; then
-    # the flagged harnesses may belong to the thorough tier only (larger bounds, slow ones)
-    (cd $V && VERIF_ONLY="$hits" python3 check.py $pid --tier thorough > $out/check_${pid}_thorough.txt 2>$out/check_${pid}_thorough.err; echo "exit=$? (tier thorough, restricted to the harnesses the native sweep flagged: $hits)" >> $out/check_${pid}_thorough.txt)
-    if grep -q "^VIOLATION" $out/check_${pid}_thorough.txt; then cp $out/check_${pid}_thorough.txt $out/check_$pid.txt; fi
-  fi
-fi
-if [ -z "$hits" ] || { ! grep -q "^VIOLATION" $out/check_$pid.txt && grep -q "no obligation was generated" $out/check_$pid.txt; }; then
-  (cd $V && python3 check.py $pid --tier $tier > $out/check_$pid.txt 2>$out/check_$pid.err; echo "exit=$? (tier $tier, full check; native sweep flagged nothing the restricted runs could decide)" >> $out/check_$pid.txt)
-fi
-rif [ -n "$hits" ]; then
-  (cd $V && VERIF_ONLY="$hits" python3 check.py $pid --tier $tier > $out/check_$pid.txt 2>$out/check_$pid.err; echo "exit=$? (tier $tier, restricted to the harnesses the native sweep flagged: $hits)" >> $out/check_$pid.txt)
-  if ! grep -q "^VIOLATION" $out/check_$pid.txt && [ "$tier" = quick ]; then
-    # the flagged harnesses may belong to the thorough tier only (larger bounds, slow ones)
-    (cd $V && VERIF_ONLY="$hits" python3 check.py $pid --tier thorough > $out/check_${pid}_thorough.txt 2>$out/check_${pid}_thorough.err; echo "exit=$? (tier thorough, restricted to the harnesses the native sweep flagged: $hits)" >> $out/check_${pid}_thorough.txt)
-    if grep -q "^VIOLATION" $out/check_${pid}_thorough.txt; then cp $out/check_${pid}_thorough.txt $out/check_$pid.txt; fi
-  fi
-fi
-if [ -z "$hits" ] || { ! grep -q "^VIOLATION" $out/check_$pid.txt && grep -q "no obligation was generated" $out/check_$pid.txt; }; then
-  (cd $V && python3 check.py $pid --tier $tier > $out/check_$pid.txt 2>$out/check_$pid.err; echo "exit=$? (tier $tier, full check; native sweep flagged nothing the restricted runs could decide)" >> $out/check_$pid.txt)
-fi
-uif [ -n "$hits" ]; then
-  (cd $V && VERIF_ONLY="$hits" python3 check.py $pid --tier $tier > $out/check_$pid.txt 2>$out/check_$pid.err; echo "exit=$? (tier $tier, restricted to the harnesses the native sweep flagged: $hits)" >> $out/check_$pid.txt)
-  if ! grep -q "^VIOLATION" $out/check_$pid.txt && [ "$tier" = quick ]; then
-    # the flagged harnesses may belong to the thorough tier only (larger bounds, slow ones)
-    (cd $V && VERIF_ONLY="$hits" python3 check.py $pid --tier thorough > $out/check_${pid}_thorough.txt 2>$out/check_${pid}_thorough.err; echo "exit=$? (tier thorough, restricted to the harnesses the native sweep flagged: $hits)" >> $out/check_${pid}_thorough.txt)
-    if grep -q "^VIOLATION" $out/check_${pid}_thorough.txt; then cp $out/check_${pid}_thorough.txt $out/check_$pid.txt; fi
-  fi
-fi
-if [ -z "$hits" ] || { ! grep -q "^VIOLATION" $out/check_$pid.txt && grep -q "no obligation was generated" $out/check_$pid.txt; }; then
-  (cd $V && python3 check.py $pid --tier $tier > $out/check_$pid.txt 2>$out/check_$pid.err; echo "exit=$? (tier $tier, full check; native sweep flagged nothing the restricted runs could decide)" >> $out/check_$pid.txt)
-fi
-nif [ -n "$hits" ]; then
-  (cd $V && VERIF_ONLY="$hits" python3 check.py $pid --tier $tier > $out/check_$pid.txt 2>$out/check_$pid.err; echo "exit=$? (tier $tier, restricted to the harnesses the native sweep flagged: $hits)" >> $out/check_$pid.txt)
-  if ! grep -q "^VIOLATION" $out/check_$pid.txt && [ "$tier" = quick ]; then
-    # the flagged harnesses may belong to the thorough tier only (larger bounds, slow ones)
-    (cd $V && VERIF_ONLY="$hits" python3 check.py $pid --tier thorough > $out/check_${pid}_thorough.txt 2>$out/check_${pid}_thorough.err; echo "exit=$? (tier thorough, restricted to the harnesses the native sweep flagged: $hits)" >> $out/check_${pid}_thorough.txt)
-    if grep -q "^VIOLATION" $out/check_${pid}_thorough.txt; then cp $out/check_${pid}_thorough.txt $out/check_$pid.txt; fi
-  fi
-fi
-if [ -z "$hits" ] || { ! grep -q "^VIOLATION" $out/check_$pid.txt && grep -q "no obligation was generated" $out/check_$pid.txt; }; then
-  (cd $V && python3 check.py $pid --tier $tier > $out/check_$pid.txt 2>$out/check_$pid.err; echo "exit=$? (tier $tier, full check; native sweep flagged nothing the restricted runs could decide)" >> $out/check_$pid.txt)
-fi
-/if [ -n "$hits" ]; then
-  (cd $V && VERIF_ONLY="$hits" python3 check.py $pid --tier $tier > $out/check_$pid.txt 2>$out/check_$pid.err; echo "exit=$? (tier $tier, restricted to the harnesses the native sweep flagged: $hits)" >> $out/check_$pid.txt)
-  if ! grep -q "^VIOLATION" $out/check_$pid.txt && [ "$tier" = quick ]; then
-    # the flagged harnesses may belong to the thorough tier only (larger bounds, slow ones)
-    (cd $V && VERIF_ONLY="$hits" python3 check.py $pid --tier thorough > $out/check_${pid}_thorough.txt 2>$out/check_${pid}_thorough.err; echo "exit=$? (tier thorough, restricted to the harnesses the native sweep flagged: $hits)" >> $out/check_${pid}_thorough.txt)
-    if grep -q "^VIOLATION" $out/check_${pid}_thorough.txt; then cp $out/check_${pid}_thorough.txt $out/check_$pid.txt; fi
-  fi
-fi
-if [ -z "$hits" ] || { ! grep -q "^VIOLATION" $out/check_$pid.txt && grep -q "no obligation was generated" $out/check_$pid.txt; }; then
-  (cd $V && python3 check.py $pid --tier $tier > $out/check_$pid.txt 2>$out/check_$pid.err; echo "exit=$? (tier $tier, full check; native sweep flagged nothing the restricted runs could decide)" >> $out/check_$pid.txt)
-fi
-wif [ -n "$hits" ]; then
-  (cd $V && VERIF_ONLY="$hits" python3 check.py $pid --tier $tier > $out/check_$pid.txt 2>$out/check_$pid.err; echo "exit=$? (tier $tier, restricted to the harnesses the native sweep flagged: $hits)" >> $out/check_$pid.txt)
-  if ! grep -q "^VIOLATION" $out/check_$pid.txt && [ "$tier" = quick ]; then
-    # the flagged harnesses may belong to the thorough tier only (larger bounds, slow ones)
-    (cd $V && VERIF_ONLY="$hits" python3 check.py $pid --tier thorough > $out/check_${pid}_thorough.txt 2>$out/check_${pid}_thorough.err; echo "exit=$? (tier thorough, restricted to the harnesses the native sweep flagged: $hits)" >> $out/check_${pid}_thorough.txt)
-    if grep -q "^VIOLATION" $out/check_${pid}_thorough.txt; then cp $out/check_${pid}_thorough.txt $out/check_$pid.txt; fi
-  fi
-fi
-if [ -z "$hits" ] || { ! grep -q "^VIOLATION" $out/check_$pid.txt && grep -q "no obligation was generated" $out/check_$pid.txt; }; then
-  (cd $V && python3 check.py $pid --tier $tier > $out/check_$pid.txt 2>$out/check_$pid.err; echo "exit=$? (tier $tier, full check; native sweep flagged nothing the restricted runs could decide)" >> $out/check_$pid.txt)
-fi
-oif [ -n "$hits" ]; then
-  (cd $V && VERIF_ONLY="$hits" python3 check.py $pid --tier $tier > $out/check_$pid.txt 2>$out/check_$pid.err; echo "exit=$? (tier $tier, restricted to the harnesses the native sweep flagged: $hits)" >> $out/check_$pid.txt)
-  if ! grep -q "^VIOLATION" $out/check_$pid.txt && [ "$tier" = quick ]; then
-    # the flagged harnesses may belong to the thorough tier only (larger bounds, slow ones)
-    (cd $V && VERIF_ONLY="$hits" python3 check.py $pid --tier thorough > $out/check_${pid}_thorough.txt 2>$out/check_${pid}_thorough.err; echo "exit=$? (tier thorough, restricted to the harnesses the native sweep flagged: $hits)" >> $out/check_${pid}_thorough.txt)
-    if grep -q "^VIOLATION" $out/check_${pid}_thorough.txt; then cp $out/check_${pid}_thorough.txt $out/check_$pid.txt; fi
-  fi
-fi
-if [ -z "$hits" ] || { ! grep -q "^VIOLATION" $out/check_$pid.txt && grep -q "no obligation was generated" $out/check_$pid.txt; }; then
-  (cd $V && python3 check.py $pid --tier $tier > $out/check_$pid.txt 2>$out/check_$pid.err; echo "exit=$? (tier $tier, full check; native sweep flagged nothing the restricted runs could decide)" >> $out/check_$pid.txt)
-fi
-rif [ -n "$hits" ]; then
-  (cd $V && VERIF_ONLY="$hits" python3 check.py $pid --tier $tier > $out/check_$pid.txt 2>$out/check_$pid.err; echo "exit=$? (tier $tier, restricted to the harnesses the native sweep flagged: $hits)" >> $out/check_$pid.txt)
-  if ! grep -q "^VIOLATION" $out/check_$pid.txt && [ "$tier" = quick ]; then
-    # the flagged harnesses may belong to the thorough tier only (larger bounds, slow ones)
-    (cd $V && VERIF_ONLY="$hits" python3 check.py $pid --tier thorough > $out/check_${pid}_thorough.txt 2>$out/check_${pid}_thorough.err; echo "exit=$? (tier thorough, restricted to the harnesses the native sweep flagged: $hits)" >> $out/check_${pid}_thorough.txt)
-    if grep -q "^VIOLATION" $out/check_${pid}_thorough.txt; then cp $out/check_${pid}_thorough.txt $out/check_$pid.txt; fi
-  fi
-fi
-if [ -z "$hits" ] || { ! grep -q "^VIOLATION" $out/check_$pid.txt && grep -q "no obligation was generated" $out/check_$pid.txt; }; then
-  (cd $V && python3 check.py $pid --tier $tier > $out/check_$pid.txt 2>$out/check_$pid.err; echo "exit=$? (tier $tier, full check; native sweep flagged nothing the restricted runs could decide)" >> $out/check_$pid.txt)
-fi
-kif [ -n "$hits" ]; then
-  (cd $V && VERIF_ONLY="$hits" python3 check.py $pid --tier $tier > $out/check_$pid.txt 2>$out/check_$pid.err; echo "exit=$? (tier $tier, restricted to the harnesses the native sweep flagged: $hits)" >> $out/check_$pid.txt)
-  if ! grep -q "^VIOLATION" $out/check_$pid.txt && [ "$tier" = quick ]; then
-    # the flagged harnesses may belong to the thorough tier only (larger bounds, slow ones)
-    (cd $V && VERIF_ONLY="$hits" python3 check.py $pid --tier thorough > $out/check_${pid}_thorough.txt 2>$out/check_${pid}_thorough.err; echo "exit=$? (tier thorough, restricted to the harnesses the native sweep flagged: $hits)" >> $out/check_${pid}_thorough.txt)
-    if grep -q "^VIOLATION" $out/check_${pid}_thorough.txt; then cp $out/check_${pid}_thorough.txt $out/check_$pid.txt; fi
-  fi
-fi
-if [ -z "$hits" ] || { ! grep -q "^VIOLATION" $out/check_$pid.txt && grep -q "no obligation was generated" $out/check_$pid.txt; }; then
-  (cd $V && python3 check.py $pid --tier $tier > $out/check_$pid.txt 2>$out/check_$pid.err; echo "exit=$? (tier $tier, full check; native sweep flagged nothing the restricted runs could decide)" >> $out/check_$pid.txt)
-fi
-_if [ -n "$hits" ]; then
-  (cd $V && VERIF_ONLY="$hits" python3 check.py $pid --tier $tier > $out/check_$pid.txt 2>$out/check_$pid.err; echo "exit=$? (tier $tier, restricted to the harnesses the native sweep flagged: $hits)" >> $out/check_$pid.txt)
-  if ! grep -q "^VIOLATION" $out/check_$pid.txt && [ "$tier" = quick ]; then
-    # the flagged harnesses may belong to the thorough tier only (larger bounds, slow ones)
-    (cd $V && VERIF_ONLY="$hits" python3 check.py $pid --tier thorough > $out/check_${pid}_thorough.txt 2>$out/check_${pid}_thorough.err; echo "exit=$? (tier thorough, restricted to the harnesses the native sweep flagged: $hits)" >> $out/check_${pid}_thorough.txt)
-    if grep -q "^VIOLATION" $out/check_${pid}_thorough.txt; then cp $out/check_${pid}_thorough.txt $out/check_$pid.txt; fi
-  fi
-fi
-if [ -z "$hits" ] || { ! grep -q "^VIOLATION" $out/check_$pid.txt && grep -q "no obligation was generated" $out/check_$pid.txt; }; then
-  (cd $V && python3 check.py $pid --tier $tier > $out/check_$pid.txt 2>$out/check_$pid.err; echo "exit=$? (tier $tier, full check; native sweep flagged nothing the restricted runs could decide)" >> $out/check_$pid.txt)
-fi
-$if [ -n "$hits" ]; then
-  (cd $V && VERIF_ONLY="$hits" python3 check.py $pid --tier $tier > $out/check_$pid.txt 2>$out/check_$pid.err; echo "exit=$? (tier $tier, restricted to the harnesses the native sweep flagged: $hits)" >> $out/check_$pid.txt)
-  if ! grep -q "^VIOLATION" $out/check_$pid.txt && [ "$tier" = quick ]; then
-    # the flagged harnesses may belong to the thorough tier only (larger bounds, slow ones)
-    (cd $V && VERIF_ONLY="$hits" python3 check.py $pid --tier thorough > $out/check_${pid}_thorough.txt 2>$out/check_${pid}_thorough.err; echo "exit=$? (tier thorough, restricted to the harnesses the native sweep flagged: $hits)" >> $out/check_${pid}_thorough.txt)
-    if grep -q "^VIOLATION" $out/check_${pid}_thorough.txt; then cp $out/check_${pid}_thorough.txt $out/check_$pid.txt; fi
-  fi
-fi
-if [ -z "$hits" ] || { ! grep -q "^VIOLATION" $out/check_$pid.txt && grep -q "no obligation was generated" $out/check_$pid.txt; }; then
-  (cd $V && python3 check.py $pid --tier $tier > $out/check_$pid.txt 2>$out/check_$pid.err; echo "exit=$? (tier $tier, full check; native sweep flagged nothing the restricted runs could decide)" >> $out/check_$pid.txt)
-fi
-nif [ -n "$hits" ]; then
-  (cd $V && VERIF_ONLY="$hits" python3 check.py $pid --tier $tier > $out/check_$pid.txt 2>$out/check_$pid.err; echo "exit=$? (tier $tier, restricted to the harnesses the native sweep flagged: $hits)" >> $out/check_$pid.txt)
-  if ! grep -q "^VIOLATION" $out/check_$pid.txt && [ "$tier" = quick ]; then
-    # the flagged harnesses may belong to the thorough tier only (larger bounds, slow ones)
-    (cd $V && VERIF_ONLY="$hits" python3 check.py $pid --tier thorough > $out/check_${pid}_thorough.txt 2>$out/check_${pid}_thorough.err; echo "exit=$? (tier thorough, restricted to the harnesses the native sweep flagged: $hits)" >> $out/check_${pid}_thorough.txt)
-    if grep -q "^VIOLATION" $out/check_${pid}_thorough.txt; then cp $out/check_${pid}_thorough.txt $out/check_$pid.txt; fi
-  fi
-fi
-if [ -z "$hits" ] || { ! grep -q "^VIOLATION" $out/check_$pid.txt && grep -q "no obligation was generated" $out/check_$pid.txt; }; then
-  (cd $V && python3 check.py $pid --tier $tier > $out/check_$pid.txt 2>$out/check_$pid.err; echo "exit=$? (tier $tier, full check; native sweep flagged nothing the restricted runs could decide)" >> $out/check_$pid.txt)
-fi
-aif [ -n "$hits" ]; then
-  (cd $V && VERIF_ONLY="$hits" python3 check.py $pid --tier $tier > $out/check_$pid.txt 2>$out/check_$pid.err; echo "exit=$? (tier $tier, restricted to the harnesses the native sweep flagged: $hits)" >> $out/check_$pid.txt)
-  if ! grep -q "^VIOLATION" $out/check_$pid.txt && [ "$tier" = quick ]; then
-    # the flagged harnesses may belong to the thorough tier only (larger bounds, slow ones)
-    (cd $V && VERIF_ONLY="$hits" python3 check.py $pid --tier thorough > $out/check_${pid}_thorough.txt 2>$out/check_${pid}_thorough.err; echo "exit=$? (tier thorough, restricted to the harnesses the native sweep flagged: $hits)" >> $out/check_${pid}_thorough.txt)
-    if grep -q "^VIOLATION" $out/check_${pid}_thorough.txt; then cp $out/check_${pid}_thorough.txt $out/check_$pid.txt; fi
-  fi
-fi
-if [ -z "$hits" ] || { ! grep -q "^VIOLATION" $out/check_$pid.txt && grep -q "no obligation was generated" $out/check_$pid.txt; }; then
-  (cd $V && python3 check.py $pid --tier $tier > $out/check_$pid.txt 2>$out/check_$pid.err; echo "exit=$? (tier $tier, full check; native sweep flagged nothing the restricted runs could decide)" >> $out/check_$pid.txt)
-fi
-mif [ -n "$hits" ]; then
-  (cd $V && VERIF_ONLY="$hits" python3 check.py $pid --tier $tier > $out/check_$pid.txt 2>$out/check_$pid.err; echo "exit=$? (tier $tier, restricted to the harnesses the native sweep flagged: $hits)" >> $out/check_$pid.txt)
-  if ! grep -q "^VIOLATION" $out/check_$pid.txt && [ "$tier" = quick ]; then
-    # the flagged harnesses may belong to the thorough tier only (larger bounds, slow ones)
-    (cd $V && VERIF_ONLY="$hits" python3 check.py $pid --tier thorough > $out/check_${pid}_thorough.txt 2>$out/check_${pid}_thorough.err; echo "exit=$? (tier thorough, restricted to the harnesses the native sweep flagged: $hits)" >> $out/check_${pid}_thorough.txt)
-    if grep -q "^VIOLATION" $out/check_${pid}_thorough.txt; then cp $out/check_${pid}_thorough.txt $out/check_$pid.txt; fi
-  fi
-fi
-if [ -z "$hits" ] || { ! grep -q "^VIOLATION" $out/check_$pid.txt && grep -q "no obligation was generated" $out/check_$pid.txt; }; then
-  (cd $V && python3 check.py $pid --tier $tier > $out/check_$pid.txt 2>$out/check_$pid.err; echo "exit=$? (tier $tier, full check; native sweep flagged nothing the restricted runs could decide)" >> $out/check_$pid.txt)
-fi
-eif [ -n "$hits" ]; then
-  (cd $V && VERIF_ONLY="$hits" python3 check.py $pid --tier $tier > $out/check_$pid.txt 2>$out/check_$pid.err; echo "exit=$? (tier $tier, restricted to the harnesses the native sweep flagged: $hits)" >> $out/check_$pid.txt)
-  if ! grep -q "^VIOLATION" $out/check_$pid.txt && [ "$tier" = quick ]; then
-    # the flagged harnesses may belong to the thorough tier only (larger bounds, slow ones)
-    (cd $V && VERIF_ONLY="$hits" python3 check.py $pid --tier thorough > $out/check_${pid}_thorough.txt 2>$out/check_${pid}_thorough.err; echo "exit=$? (tier thorough, restricted to the harnesses the native sweep flagged: $hits)" >> $out/check_${pid}_thorough.txt)
-    if grep -q "^VIOLATION" $out/check_${pid}_thorough.txt; then cp $out/check_${pid}_thorough.txt $out/check_$pid.txt; fi
-  fi
-fi
-if [ -z "$hits" ] || { ! grep -q "^VIOLATION" $out/check_$pid.txt && grep -q "no obligation was generated" $out/check_$pid.txt; }; then
-  (cd $V && python3 check.py $pid --tier $tier > $out/check_$pid.txt 2>$out/check_$pid.err; echo "exit=$? (tier $tier, full check; native sweep flagged nothing the restricted runs could decide)" >> $out/check_$pid.txt)
-fi
-
-if [ -n "$hits" ]; then
-  (cd $V && VERIF_ONLY="$hits" python3 check.py $pid --tier $tier > $out/check_$pid.txt 2>$out/check_$pid.err; echo "exit=$? (tier $tier, restricted to the harnesses the native sweep flagged: $hits)" >> $out/check_$pid.txt)
-  if ! grep -q "^VIOLATION" $out/check_$pid.txt && [ "$tier" = quick ]; then
-    # the flagged harnesses may belong to the thorough tier only (larger bounds, slow ones)
-    (cd $V && VERIF_ONLY="$hits" python3 check.py $pid --tier thorough > $out/check_${pid}_thorough.txt 2>$out/check_${pid}_thorough.err; echo "exit=$? (tier thorough, restricted to the harnesses the native sweep flagged: $hits)" >> $out/check_${pid}_thorough.txt)
-    if grep -q "^VIOLATION" $out/check_${pid}_thorough.txt; then cp $out/check_${pid}_thorough.txt $out/check_$pid.txt; fi
-  fi
-fi
-if [ -z "$hits" ] || { ! grep -q "^VIOLATION" $out/check_$pid.txt && grep -q "no obligation was generated" $out/check_$pid.txt; }; then
-  (cd $V && python3 check.py $pid --tier $tier > $out/check_$pid.txt 2>$out/check_$pid.err; echo "exit=$? (tier $tier, full check; native sweep flagged nothing the restricted runs could decide)" >> $out/check_$pid.txt)
-fi
-eif [ -n "$hits" ]; then
-  (cd $V && VERIF_ONLY="$hits" python3 check.py $pid --tier $tier > $out/check_$pid.txt 2>$out/check_$pid.err; echo "exit=$? (tier $tier, restricted to the harnesses the native sweep flagged: $hits)" >> $out/check_$pid.txt)
-  if ! grep -q "^VIOLATION" $out/check_$pid.txt && [ "$tier" = quick ]; then
-    # the flagged harnesses may belong to the thorough tier only (larger bounds, slow ones)
-    (cd $V && VERIF_ONLY="$hits" python3 check.py $pid --tier thorough > $out/check_${pid}_thorough.txt 2>$out/check_${pid}_thorough.err; echo "exit=$? (tier thorough, restricted to the harnesses the native sweep flagged: $hits)" >> $out/check_${pid}_thorough.txt)
-    if grep -q "^VIOLATION" $out/check_${pid}_thorough.txt; then cp $out/check_${pid}_thorough.txt $out/check_$pid.txt; fi
-  fi
-fi
-if [ -z "$hits" ] || { ! grep -q "^VIOLATION" $out/check_$pid.txt && grep -q "no obligation was generated" $out/check_$pid.txt; }; then
-  (cd $V && python3 check.py $pid --tier $tier > $out/check_$pid.txt 2>$out/check_$pid.err; echo "exit=$? (tier $tier, full check; native sweep flagged nothing the restricted runs could decide)" >> $out/check_$pid.txt)
-fi
-cif [ -n "$hits" ]; then
-  (cd $V && VERIF_ONLY="$hits" python3 check.py $pid --tier $tier > $out/check_$pid.txt 2>$out/check_$pid.err; echo "exit=$? (tier $tier, restricted to the harnesses the native sweep flagged: $hits)" >> $out/check_$pid.txt)
-  if ! grep -q "^VIOLATION" $out/check_$pid.txt && [ "$tier" = quick ]; then
-    # the flagged harnesses may belong to the thorough tier only (larger bounds, slow ones)
-    (cd $V && VERIF_ONLY="$hits" python3 check.py $pid --tier thorough > $out/check_${pid}_thorough.txt 2>$out/check_${pid}_thorough.err; echo "exit=$? (tier thorough, restricted to the harnesses the native sweep flagged: $hits)" >> $out/check_${pid}_thorough.txt)
-    if grep -q "^VIOLATION" $out/check_${pid}_thorough.txt; then cp $out/check_${pid}_thorough.txt $out/check_$pid.txt; fi
-  fi
-fi
-if [ -z "$hits" ] || { ! grep -q "^VIOLATION" $out/check_$pid.txt && grep -q "no obligation was generated" $out/check_$pid.txt; }; then
-  (cd $V && python3 check.py $pid --tier $tier > $out/check_$pid.txt 2>$out/check_$pid.err; echo "exit=$? (tier $tier, full check; native sweep flagged nothing the restricted runs could decide)" >> $out/check_$pid.txt)
-fi
-hif [ -n "$hits" ]; then
-  (cd $V && VERIF_ONLY="$hits" python3 check.py $pid --tier $tier > $out/check_$pid.txt 2>$out/check_$pid.err; echo "exit=$? (tier $tier, restricted to the harnesses the native sweep flagged: $hits)" >> $out/check_$pid.txt)
-  if ! grep -q "^VIOLATION" $out/check_$pid.txt && [ "$tier" = quick ]; then
-    # the flagged harnesses may belong to the thorough tier only (larger bounds, slow ones)
-    (cd $V && VERIF_ONLY="$hits" python3 check.py $pid --tier thorough > $out/check_${pid}_thorough.txt 2>$out/check_${pid}_thorough.err; echo "exit=$? (tier thorough, restricted to the harnesses the native sweep flagged: $hits)" >> $out/check_${pid}_thorough.txt)
-    if grep -q "^VIOLATION" $out/check_${pid}_thorough.txt; then cp $out/check_${pid}_thorough.txt $out/check_$pid.txt; fi
-  fi
-fi
-if [ -z "$hits" ] || { ! grep -q "^VIOLATION" $out/check_$pid.txt && grep -q "no obligation was generated" $out/check_$pid.txt; }; then
-  (cd $V && python3 check.py $pid --tier $tier > $out/check_$pid.txt 2>$out/check_$pid.err; echo "exit=$? (tier $tier, full check; native sweep flagged nothing the restricted runs could decide)" >> $out/check_$pid.txt)
-fi
-oif [ -n "$hits" ]; then
-  (cd $V && VERIF_ONLY="$hits" python3 check.py $pid --tier $tier > $out/check_$pid.txt 2>$out/check_$pid.err; echo "exit=$? (tier $tier, restricted to the harnesses the native sweep flagged: $hits)" >> $out/check_$pid.txt)
-  if ! grep -q "^VIOLATION" $out/check_$pid.txt && [ "$tier" = quick ]; then
-    # the flagged harnesses may belong to the thorough tier only (larger bounds, slow ones)
-    (cd $V && VERIF_ONLY="$hits" python3 check.py $pid --tier thorough > $out/check_${pid}_thorough.txt 2>$out/check_${pid}_thorough.err; echo "exit=$? (tier thorough, restricted to the harnesses the native sweep flagged: $hits)" >> $out/check_${pid}_thorough.txt)
-    if grep -q "^VIOLATION" $out/check_${pid}_thorough.txt; then cp $out/check_${pid}_thorough.txt $out/check_$pid.txt; fi
-  fi
-fi
-if [ -z "$hits" ] || { ! grep -q "^VIOLATION" $out/check_$pid.txt && grep -q "no obligation was generated" $out/check_$pid.txt; }; then
-  (cd $V && python3 check.py $pid --tier $tier > $out/check_$pid.txt 2>$out/check_$pid.err; echo "exit=$? (tier $tier, full check; native sweep flagged nothing the restricted runs could decide)" >> $out/check_$pid.txt)
-fi
- if [ -n "$hits" ]; then
-  (cd $V && VERIF_ONLY="$hits" python3 check.py $pid --tier $tier > $out/check_$pid.txt 2>$out/check_$pid.err; echo "exit=$? (tier $tier, restricted to the harnesses the native sweep flagged: $hits)" >> $out/check_$pid.txt)
-  if ! grep -q "^VIOLATION" $out/check_$pid.txt && [ "$tier" = quick ]; then
-    # the flagged harnesses may belong to the thorough tier only (larger bounds, slow ones)
-    (cd $V && VERIF_ONLY="$hits" python3 check.py $pid --tier thorough > $out/check_${pid}_thorough.txt 2>$out/check_${pid}_thorough.err; echo "exit=$? (tier thorough, restricted to the harnesses the native sweep flagged: $hits)" >> $out/check_${pid}_thorough.txt)
-    if grep -q "^VIOLATION" $out/check_${pid}_thorough.txt; then cp $out/check_${pid}_thorough.txt $out/check_$pid.txt; fi
-  fi
-fi
-if [ -z "$hits" ] || { ! grep -q "^VIOLATION" $out/check_$pid.txt && grep -q "no obligation was generated" $out/check_$pid.txt; }; then
-  (cd $V && python3 check.py $pid --tier $tier > $out/check_$pid.txt 2>$out/check_$pid.err; echo "exit=$? (tier $tier, full check; native sweep flagged nothing the restricted runs could decide)" >> $out/check_$pid.txt)
-fi
-"if [ -n "$hits" ]; then
-  (cd $V && VERIF_ONLY="$hits" python3 check.py $pid --tier $tier > $out/check_$pid.txt 2>$out/check_$pid.err; echo "exit=$? (tier $tier, restricted to the harnesses the native sweep flagged: $hits)" >> $out/check_$pid.txt)
-  if ! grep -q "^VIOLATION" $out/check_$pid.txt && [ "$tier" = quick ]; then
-    # the flagged harnesses may belong to the thorough tier only (larger bounds, slow ones)
-    (cd $V && VERIF_ONLY="$hits" python3 check.py $pid --tier thorough > $out/check_${pid}_thorough.txt 2>$out/check_${pid}_thorough.err; echo "exit=$? (tier thorough, restricted to the harnesses the native sweep flagged: $hits)" >> $out/check_${pid}_thorough.txt)
-    if grep -q "^VIOLATION" $out/check_${pid}_thorough.txt; then cp $out/check_${pid}_thorough.txt $out/check_$pid.txt; fi
-  fi
-fi
-if [ -z "$hits" ] || { ! grep -q "^VIOLATION" $out/check_$pid.txt && grep -q "no obligation was generated" $out/check_$pid.txt; }; then
-  (cd $V && python3 check.py $pid --tier $tier > $out/check_$pid.txt 2>$out/check_$pid.err; echo "exit=$? (tier $tier, full check; native sweep flagged nothing the restricted runs could decide)" >> $out/check_$pid.txt)
-fi
-=if [ -n "$hits" ]; then
-  (cd $V && VERIF_ONLY="$hits" python3 check.py $pid --tier $tier > $out/check_$pid.txt 2>$out/check_$pid.err; echo "exit=$? (tier $tier, restricted to the harnesses the native sweep flagged: $hits)" >> $out/check_$pid.txt)
-  if ! grep -q "^VIOLATION" $out/check_$pid.txt && [ "$tier" = quick ]; then
-    # the flagged harnesses may belong to the thorough tier only (larger bounds, slow ones)
-    (cd $V && VERIF_ONLY="$hits" python3 check.py $pid --tier thorough > $out/check_${pid}_thorough.txt 2>$out/check_${pid}_thorough.err; echo "exit=$? (tier thorough, restricted to the harnesses the native sweep flagged: $hits)" >> $out/check_${pid}_thorough.txt)
-    if grep -q "^VIOLATION" $out/check_${pid}_thorough.txt; then cp $out/check_${pid}_thorough.txt $out/check_$pid.txt; fi
-  fi
-fi
-if [ -z "$hits" ] || { ! grep -q "^VIOLATION" $out/check_$pid.txt && grep -q "no obligation was generated" $out/check_$pid.txt; }; then
-  (cd $V && python3 check.py $pid --tier $tier > $out/check_$pid.txt 2>$out/check_$pid.err; echo "exit=$? (tier $tier, full check; native sweep flagged nothing the restricted runs could decide)" >> $out/check_$pid.txt)
-fi
-=if [ -n "$hits" ]; then
-  (cd $V && VERIF_ONLY="$hits" python3 check.py $pid --tier $tier > $out/check_$pid.txt 2>$out/check_$pid.err; echo "exit=$? (tier $tier, restricted to the harnesses the native sweep flagged: $hits)" >> $out/check_$pid.txt)
-  if ! grep -q "^VIOLATION" $out/check_$pid.txt && [ "$tier" = quick ]; then
-    # the flagged harnesses may belong to the thorough tier only (larger bounds, slow ones)
-    (cd $V && VERIF_ONLY="$hits" python3 check.py $pid --tier thorough > $out/check_${pid}_thorough.txt 2>$out/check_${pid}_thorough.err; echo "exit=$? (tier thorough, restricted to the harnesses the native sweep flagged: $hits)" >> $out/check_${pid}_thorough.txt)
-    if grep -q "^VIOLATION" $out/check_${pid}_thorough.txt; then cp $out/check_${pid}_thorough.txt $out/check_$pid.txt; fi
-  fi
-fi
-if [ -z "$hits" ] || { ! grep -q "^VIOLATION" $out/check_$pid.txt && grep -q "no obligation was generated" $out/check_$pid.txt; }; then
-  (cd $V && python3 check.py $pid --tier $tier > $out/check_$pid.txt 2>$out/check_$pid.err; echo "exit=$? (tier $tier, full check; native sweep flagged nothing the restricted runs could decide)" >> $out/check_$pid.txt)
-fi
- if [ -n "$hits" ]; then
-  (cd $V && VERIF_ONLY="$hits" python3 check.py $pid --tier $tier > $out/check_$pid.txt 2>$out/check_$pid.err; echo "exit=$? (tier $tier, restricted to the harnesses the native sweep flagged: $hits)" >> $out/check_$pid.txt)
-  if ! grep -q "^VIOLATION" $out/check_$pid.txt && [ "$tier" = quick ]; then
-    # the flagged harnesses may belong to the thorough tier only (larger bounds, slow ones)
-    (cd $V && VERIF_ONLY="$hits" python3 check.py $pid --tier thorough > $out/check_${pid}_thorough.txt 2>$out/check_${pid}_thorough.err; echo "exit=$? (tier thorough, restricted to the harnesses the native sweep flagged: $hits)" >> $out/check_${pid}_thorough.txt)
-    if grep -q "^VIOLATION" $out/check_${pid}_thorough.txt; then cp $out/check_${pid}_thorough.txt $out/check_$pid.txt; fi
-  fi
-fi
-if [ -z "$hits" ] || { ! grep -q "^VIOLATION" $out/check_$pid.txt && grep -q "no obligation was generated" $out/check_$pid.txt; }; then
-  (cd $V && python3 check.py $pid --tier $tier > $out/check_$pid.txt 2>$out/check_$pid.err; echo "exit=$? (tier $tier, full check; native sweep flagged nothing the restricted runs could decide)" >> $out/check_$pid.txt)
-fi
-$if [ -n "$hits" ]; then
-  (cd $V && VERIF_ONLY="$hits" python3 check.py $pid --tier $tier > $out/check_$pid.txt 2>$out/check_$pid.err; echo "exit=$? (tier $tier, restricted to the harnesses the native sweep flagged: $hits)" >> $out/check_$pid.txt)
-  if ! grep -q "^VIOLATION" $out/check_$pid.txt && [ "$tier" = quick ]; then
-    # the flagged harnesses may belong to the thorough tier only (larger bounds, slow ones)
-    (cd $V && VERIF_ONLY="$hits" python3 check.py $pid --tier thorough > $out/check_${pid}_thorough.txt 2>$out/check_${pid}_thorough.err; echo "exit=$? (tier thorough, restricted to the harnesses the native sweep flagged: $hits)" >> $out/check_${pid}_thorough.txt)
-    if grep -q "^VIOLATION" $out/check_${pid}_thorough.txt; then cp $out/check_${pid}_thorough.txt $out/check_$pid.txt; fi
-  fi
-fi
-if [ -z "$hits" ] || { ! grep -q "^VIOLATION" $out/check_$pid.txt && grep -q "no obligation was generated" $out/check_$pid.txt; }; then
-  (cd $V && python3 check.py $pid --tier $tier > $out/check_$pid.txt 2>$out/check_$pid.err; echo "exit=$? (tier $tier, full check; native sweep flagged nothing the restricted runs could decide)" >> $out/check_$pid.txt)
-fi
-nif [ -n "$hits" ]; then
-  (cd $V && VERIF_ONLY="$hits" python3 check.py $pid --tier $tier > $out/check_$pid.txt 2>$out/check_$pid.err; echo "exit=$? (tier $tier, restricted to the harnesses the native sweep flagged: $hits)" >> $out/check_$pid.txt)
-  if ! grep -q "^VIOLATION" $out/check_$pid.txt && [ "$tier" = quick ]; then
-    # the flagged harnesses may belong to the thorough tier only (larger bounds, slow ones)
-    (cd $V && VERIF_ONLY="$hits" python3 check.py $pid --tier thorough > $out/check_${pid}_thorough.txt 2>$out/check_${pid}_thorough.err; echo "exit=$? (tier thorough, restricted to the harnesses the native sweep flagged: $hits)" >> $out/check_${pid}_thorough.txt)
-    if grep -q "^VIOLATION" $out/check_${pid}_thorough.txt; then cp $out/check_${pid}_thorough.txt $out/check_$pid.txt; fi
-  fi
-fi
-if [ -z "$hits" ] || { ! grep -q "^VIOLATION" $out/check_$pid.txt && grep -q "no obligation was generated" $out/check_$pid.txt; }; then
-  (cd $V && python3 check.py $pid --tier $tier > $out/check_$pid.txt 2>$out/check_$pid.err; echo "exit=$? (tier $tier, full check; native sweep flagged nothing the restricted runs could decide)" >> $out/check_$pid.txt)
-fi
-aif [ -n "$hits" ]; then
-  (cd $V && VERIF_ONLY="$hits" python3 check.py $pid --tier $tier > $out/check_$pid.txt 2>$out/check_$pid.err; echo "exit=$? (tier $tier, restricted to the harnesses the native sweep flagged: $hits)" >> $out/check_$pid.txt)
-  if ! grep -q "^VIOLATION" $out/check_$pid.txt && [ "$tier" = quick ]; then
-    # the flagged harnesses may belong to the thorough tier only (larger bounds, slow ones)
-    (cd $V && VERIF_ONLY="$hits" python3 check.py $pid --tier thorough > $out/check_${pid}_thorough.txt 2>$out/check_${pid}_thorough.err; echo "exit=$? (tier thorough, restricted to the harnesses the native sweep flagged: $hits)" >> $out/check_${pid}_thorough.txt)
-    if grep -q "^VIOLATION" $out/check_${pid}_thorough.txt; then cp $out/check_${pid}_thorough.txt $out/check_$pid.txt; fi
-  fi
-fi
-if [ -z "$hits" ] || { ! grep -q "^VIOLATION" $out/check_$pid.txt && grep -q "no obligation was generated" $out/check_$pid.txt; }; then
-  (cd $V && python3 check.py $pid --tier $tier > $out/check_$pid.txt 2>$out/check_$pid.err; echo "exit=$? (tier $tier, full check; native sweep flagged nothing the restricted runs could decide)" >> $out/check_$pid.txt)
-fi
-mif [ -n "$hits" ]; then
-  (cd $V && VERIF_ONLY="$hits" python3 check.py $pid --tier $tier > $out/check_$pid.txt 2>$out/check_$pid.err; echo "exit=$? (tier $tier, restricted to the harnesses the native sweep flagged: $hits)" >> $out/check_$pid.txt)
-  if ! grep -q "^VIOLATION" $out/check_$pid.txt && [ "$tier" = quick ]; then
-    # the flagged harnesses may belong to the thorough tier only (larger bounds, slow ones)
-    (cd $V && VERIF_ONLY="$hits" python3 check.py $pid --tier thorough > $out/check_${pid}_thorough.txt 2>$out/check_${pid}_thorough.err; echo "exit=$? (tier thorough, restricted to the harnesses the native sweep flagged: $hits)" >> $out/check_${pid}_thorough.txt)
-    if grep -q "^VIOLATION" $out/check_${pid}_thorough.txt; then cp $out/check_${pid}_thorough.txt $out/check_$pid.txt; fi
-  fi
-fi
-if [ -z "$hits" ] || { ! grep -q "^VIOLATION" $out/check_$pid.txt && grep -q "no obligation was generated" $out/check_$pid.txt; }; then
-  (cd $V && python3 check.py $pid --tier $tier > $out/check_$pid.txt 2>$out/check_$pid.err; echo "exit=$? (tier $tier, full check; native sweep flagged nothing the restricted runs could decide)" >> $out/check_$pid.txt)
-fi
-eif [ -n "$hits" ]; then
-  (cd $V && VERIF_ONLY="$hits" python3 check.py $pid --tier $tier > $out/check_$pid.txt 2>$out/check_$pid.err; echo "exit=$? (tier $tier, restricted to the harnesses the native sweep flagged: $hits)" >> $out/check_$pid.txt)
-  if ! grep -q "^VIOLATION" $out/check_$pid.txt && [ "$tier" = quick ]; then
-    # the flagged harnesses may belong to the thorough tier only (larger bounds, slow ones)
-    (cd $V && VERIF_ONLY="$hits" python3 check.py $pid --tier thorough > $out/check_${pid}_thorough.txt 2>$out/check_${pid}_thorough.err; echo "exit=$? (tier thorough, restricted to the harnesses the native sweep flagged: $hits)" >> $out/check_${pid}_thorough.txt)
-    if grep -q "^VIOLATION" $out/check_${pid}_thorough.txt; then cp $out/check_${pid}_thorough.txt $out/check_$pid.txt; fi
-  fi
-fi
-if [ -z "$hits" ] || { ! grep -q "^VIOLATION" $out/check_$pid.txt && grep -q "no obligation was generated" $out/check_$pid.txt; }; then
-  (cd $V && python3 check.py $pid --tier $tier > $out/check_$pid.txt 2>$out/check_$pid.err; echo "exit=$? (tier $tier, full check; native sweep flagged nothing the restricted runs could decide)" >> $out/check_$pid.txt)
-fi
-"if [ -n "$hits" ]; then
-  (cd $V && VERIF_ONLY="$hits" python3 check.py $pid --tier $tier > $out/check_$pid.txt 2>$out/check_$pid.err; echo "exit=$? (tier $tier, restricted to the harnesses the native sweep flagged: $hits)" >> $out/check_$pid.txt)
-  if ! grep -q "^VIOLATION" $out/check_$pid.txt && [ "$tier" = quick ]; then
-    # the flagged harnesses may belong to the thorough tier only (larger bounds, slow ones)
-    (cd $V && VERIF_ONLY="$hits" python3 check.py $pid --tier thorough > $out/check_${pid}_thorough.txt 2>$out/check_${pid}_thorough.err; echo "exit=$? (tier thorough, restricted to the harnesses the native sweep flagged: $hits)" >> $out/check_${pid}_thorough.txt)
-    if grep -q "^VIOLATION" $out/check_${pid}_thorough.txt; then cp $out/check_${pid}_thorough.txt $out/check_$pid.txt; fi
-  fi
-fi
-if [ -z "$hits" ] || { ! grep -q "^VIOLATION" $out/check_$pid.txt && grep -q "no obligation was generated" $out/check_$pid.txt; }; then
-  (cd $V && python3 check.py $pid --tier $tier > $out/check_$pid.txt 2>$out/check_$pid.err; echo "exit=$? (tier $tier, full check; native sweep flagged nothing the restricted runs could decide)" >> $out/check_$pid.txt)
-fi
-;if [ -n "$hits" ]; then
-  (cd $V && VERIF_ONLY="$hits" python3 check.py $pid --tier $tier > $out/check_$pid.txt 2>$out/check_$pid.err; echo "exit=$? (tier $tier, restricted to the harnesses the native sweep flagged: $hits)" >> $out/check_$pid.txt)
-  if ! grep -q "^VIOLATION" $out/check_$pid.txt && [ "$tier" = quick ]; then
-    # the flagged harnesses may belong to the thorough tier only (larger bounds, slow ones)
-    (cd $V && VERIF_ONLY="$hits" python3 check.py $pid --tier thorough > $out/check_${pid}_thorough.txt 2>$out/check_${pid}_thorough.err; echo "exit=$? (tier thorough, restricted to the harnesses the native sweep flagged: $hits)" >> $out/check_${pid}_thorough.txt)
-    if grep -q "^VIOLATION" $out/check_${pid}_thorough.txt; then cp $out/check_${pid}_thorough.txt $out/check_$pid.txt; fi
-  fi
-fi
-if [ -z "$hits" ] || { ! grep -q "^VIOLATION" $out/check_$pid.txt && grep -q "no obligation was generated" $out/check_$pid.txt; }; then
-  (cd $V && python3 check.py $pid --tier $tier > $out/check_$pid.txt 2>$out/check_$pid.err; echo "exit=$? (tier $tier, full check; native sweep flagged nothing the restricted runs could decide)" >> $out/check_$pid.txt)
-fi
- if [ -n "$hits" ]; then
-  (cd $V && VERIF_ONLY="$hits" python3 check.py $pid --tier $tier > $out/check_$pid.txt 2>$out/check_$pid.err; echo "exit=$? (tier $tier, restricted to the harnesses the native sweep flagged: $hits)" >> $out/check_$pid.txt)
-  if ! grep -q "^VIOLATION" $out/check_$pid.txt && [ "$tier" = quick ]; then
-    # the flagged harnesses may belong to the thorough tier only (larger bounds, slow ones)
-    (cd $V && VERIF_ONLY="$hits" python3 check.py $pid --tier thorough > $out/check_${pid}_thorough.txt 2>$out/check_${pid}_thorough.err; echo "exit=$? (tier thorough, restricted to the harnesses the native sweep flagged: $hits)" >> $out/check_${pid}_thorough.txt)
-    if grep -q "^VIOLATION" $out/check_${pid}_thorough.txt; then cp $out/check_${pid}_thorough.txt $out/check_$pid.txt; fi
-  fi
-fi
-if [ -z "$hits" ] || { ! grep -q "^VIOLATION" $out/check_$pid.txt && grep -q "no obligation was generated" $out/check_$pid.txt; }; then
-  (cd $V && python3 check.py $pid --tier $tier > $out/check_$pid.txt 2>$out/check_$pid.err; echo "exit=$? (tier $tier, full check; native sweep flagged nothing the restricted runs could decide)" >> $out/check_$pid.txt)
-fi
-gif [ -n "$hits" ]; then
-  (cd $V && VERIF_ONLY="$hits" python3 check.py $pid --tier $tier > $out/check_$pid.txt 2>$out/check_$pid.err; echo "exit=$? (tier $tier, restricted to the harnesses the native sweep flagged: $hits)" >> $out/check_$pid.txt)
-  if ! grep -q "^VIOLATION" $out/check_$pid.txt && [ "$tier" = quick ]; then
-    # the flagged harnesses may belong to the thorough tier only (larger bounds, slow ones)
-    (cd $V && VERIF_ONLY="$hits" python3 check.py $pid --tier thorough > $out/check_${pid}_thorough.txt 2>$out/check_${pid}_thorough.err; echo "exit=$? (tier thorough, restricted to the harnesses the native sweep flagged: $hits)" >> $out/check_${pid}_thorough.txt)
-    if grep -q "^VIOLATION" $out/check_${pid}_thorough.txt; then cp $out/check_${pid}_thorough.txt $out/check_$pid.txt; fi
-  fi
-fi
-if [ -z "$hits" ] || { ! grep -q "^VIOLATION" $out/check_$pid.txt && grep -q "no obligation was generated" $out/check_$pid.txt; }; then
-  (cd $V && python3 check.py $pid --tier $tier > $out/check_$pid.txt 2>$out/check_$pid.err; echo "exit=$? (tier $tier, full check; native sweep flagged nothing the restricted runs could decide)" >> $out/check_$pid.txt)
-fi
-rif [ -n "$hits" ]; then
-  (cd $V && VERIF_ONLY="$hits" python3 check.py $pid --tier $tier > $out/check_$pid.txt 2>$out/check_$pid.err; echo "exit=$? (tier $tier, restricted to the harnesses the native sweep flagged: $hits)" >> $out/check_$pid.txt)
-  if ! grep -q "^VIOLATION" $out/check_$pid.txt && [ "$tier" = quick ]; then
-    # the flagged harnesses may belong to the thorough tier only (larger bounds, slow ones)
-    (cd $V && VERIF_ONLY="$hits" python3 check.py $pid --tier thorough > $out/check_${pid}_thorough.txt 2>$out/check_${pid}_thorough.err; echo "exit=$? (tier thorough, restricted to the harnesses the native sweep flagged: $hits)" >> $out/check_${pid}_thorough.txt)
-    if grep -q "^VIOLATION" $out/check_${pid}_thorough.txt; then cp $out/check_${pid}_thorough.txt $out/check_$pid.txt; fi
-  fi
-fi
-if [ -z "$hits" ] || { ! grep -q "^VIOLATION" $out/check_$pid.txt && grep -q "no obligation was generated" $out/check_$pid.txt; }; then
-  (cd $V && python3 check.py $pid --tier $tier > $out/check_$pid.txt 2>$out/check_$pid.err; echo "exit=$? (tier $tier, full check; native sweep flagged nothing the restricted runs could decide)" >> $out/check_$pid.txt)
-fi
-eif [ -n "$hits" ]; then
-  (cd $V && VERIF_ONLY="$hits" python3 check.py $pid --tier $tier > $out/check_$pid.txt 2>$out/check_$pid.err; echo "exit=$? (tier $tier, restricted to the harnesses the native sweep flagged: $hits)" >> $out/check_$pid.txt)
-  if ! grep -q "^VIOLATION" $out/check_$pid.txt && [ "$tier" = quick ]; then
-    # the flagged harnesses may belong to the thorough tier only (larger bounds, slow ones)
-    (cd $V && VERIF_ONLY="$hits" python3 check.py $pid --tier thorough > $out/check_${pid}_thorough.txt 2>$out/check_${pid}_thorough.err; echo "exit=$? (tier thorough, restricted to the harnesses the native sweep flagged: $hits)" >> $out/check_${pid}_thorough.txt)
-    if grep -q "^VIOLATION" $out/check_${pid}_thorough.txt; then cp $out/check_${pid}_thorough.txt $out/check_$pid.txt; fi
-  fi
-fi
-if [ -z "$hits" ] || { ! grep -q "^VIOLATION" $out/check_$pid.txt && grep -q "no obligation was generated" $out/check_$pid.txt; }; then
-  (cd $V && python3 check.py $pid --tier $tier > $out/check_$pid.txt 2>$out/check_$pid.err; echo "exit=$? (tier $tier, full check; native sweep flagged nothing the restricted runs could decide)" >> $out/check_$pid.txt)
-fi
-pif [ -n "$hits" ]; then
-  (cd $V && VERIF_ONLY="$hits" python3 check.py $pid --tier $tier > $out/check_$pid.txt 2>$out/check_$pid.err; echo "exit=$? (tier $tier, restricted to the harnesses the native sweep flagged: $hits)" >> $out/check_$pid.txt)
-  if ! grep -q "^VIOLATION" $out/check_$pid.txt && [ "$tier" = quick ]; then
-    # the flagged harnesses may belong to the thorough tier only (larger bounds, slow ones)
-    (cd $V && VERIF_ONLY="$hits" python3 check.py $pid --tier thorough > $out/check_${pid}_thorough.txt 2>$out/check_${pid}_thorough.err; echo "exit=$? (tier thorough, restricted to the harnesses the native sweep flagged: $hits)" >> $out/check_${pid}_thorough.txt)
-    if grep -q "^VIOLATION" $out/check_${pid}_thorough.txt; then cp $out/check_${pid}_thorough.txt $out/check_$pid.txt; fi
-  fi
-fi
-if [ -z "$hits" ] || { ! grep -q "^VIOLATION" $out/check_$pid.txt && grep -q "no obligation was generated" $out/check_$pid.txt; }; then
-  (cd $V && python3 check.py $pid --tier $tier > $out/check_$pid.txt 2>$out/check_$pid.err; echo "exit=$? (tier $tier, full check; native sweep flagged nothing the restricted runs could decide)" >> $out/check_$pid.txt)
-fi
- if [ -n "$hits" ]; then
-  (cd $V && VERIF_ONLY="$hits" python3 check.py $pid --tier $tier > $out/check_$pid.txt 2>$out/check_$pid.err; echo "exit=$? (tier $tier, restricted to the harnesses the native sweep flagged: $hits)" >> $out/check_$pid.txt)
-  if ! grep -q "^VIOLATION" $out/check_$pid.txt && [ "$tier" = quick ]; then
-    # the flagged harnesses may belong to the thorough tier only (larger bounds, slow ones)
-    (cd $V && VERIF_ONLY="$hits" python3 check.py $pid --tier thorough > $out/check_${pid}_thorough.txt 2>$out/check_${pid}_thorough.err; echo "exit=$? (tier thorough, restricted to the harnesses the native sweep flagged: $hits)" >> $out/check_${pid}_thorough.txt)
-    if grep -q "^VIOLATION" $out/check_${pid}_thorough.txt; then cp $out/check_${pid}_thorough.txt $out/check_$pid.txt; fi
-  fi
-fi
-if [ -z "$hits" ] || { ! grep -q "^VIOLATION" $out/check_$pid.txt && grep -q "no obligation was generated" $out/check_$pid.txt; }; then
-  (cd $V && python3 check.py $pid --tier $tier > $out/check_$pid.txt 2>$out/check_$pid.err; echo "exit=$? (tier $tier, full check; native sweep flagged nothing the restricted runs could decide)" >> $out/check_$pid.txt)
-fi
--if [ -n "$hits" ]; then
-  (cd $V && VERIF_ONLY="$hits" python3 check.py $pid --tier $tier > $out/check_$pid.txt 2>$out/check_$pid.err; echo "exit=$? (tier $tier, restricted to the harnesses the native sweep flagged: $hits)" >> $out/check_$pid.txt)
-  if ! grep -q "^VIOLATION" $out/check_$pid.txt && [ "$tier" = quick ]; then
-    # the flagged harnesses may belong to the thorough tier only (larger bounds, slow ones)
-    (cd $V && VERIF_ONLY="$hits" python3 check.py $pid --tier thorough > $out/check_${pid}_thorough.txt 2>$out/check_${pid}_thorough.err; echo "exit=$? (tier thorough, restricted to the harnesses the native sweep flagged: $hits)" >> $out/check_${pid}_thorough.txt)
-    if grep -q "^VIOLATION" $out/check_${pid}_thorough.txt; then cp $out/check_${pid}_thorough.txt $out/check_$pid.txt; fi
-  fi
-fi
-if [ -z "$hits" ] || { ! grep -q "^VIOLATION" $out/check_$pid.txt && grep -q "no obligation was generated" $out/check_$pid.txt; }; then
-  (cd $V && python3 check.py $pid --tier $tier > $out/check_$pid.txt 2>$out/check_$pid.err; echo "exit=$? (tier $tier, full check; native sweep flagged nothing the restricted runs could decide)" >> $out/check_$pid.txt)
-fi
-Eif [ -n "$hits" ]; then
-  (cd $V && VERIF_ONLY="$hits" python3 check.py $pid --tier $tier > $out/check_$pid.txt 2>$out/check_$pid.err; echo "exit=$? (tier $tier, restricted to the harnesses the native sweep flagged: $hits)" >> $out/check_$pid.txt)
-  if ! grep -q "^VIOLATION" $out/check_$pid.txt && [ "$tier" = quick ]; then
-    # the flagged harnesses may belong to the thorough tier only (larger bounds, slow ones)
-    (cd $V && VERIF_ONLY="$hits" python3 check.py $pid --tier thorough > $out/check_${pid}_thorough.txt 2>$out/check_${pid}_thorough.err; echo "exit=$? (tier thorough, restricted to the harnesses the native sweep flagged: $hits)" >> $out/check_${pid}_thorough.txt)
-    if grep -q "^VIOLATION" $out/check_${pid}_thorough.txt; then cp $out/check_${pid}_thorough.txt $out/check_$pid.txt; fi
-  fi
-fi
-if [ -z "$hits" ] || { ! grep -q "^VIOLATION" $out/check_$pid.txt && grep -q "no obligation was generated" $out/check_$pid.txt; }; then
-  (cd $V && python3 check.py $pid --tier $tier > $out/check_$pid.txt 2>$out/check_$pid.err; echo "exit=$? (tier $tier, full check; native sweep flagged nothing the restricted runs could decide)" >> $out/check_$pid.txt)
-fi
- if [ -n "$hits" ]; then
-  (cd $V && VERIF_ONLY="$hits" python3 check.py $pid --tier $tier > $out/check_$pid.txt 2>$out/check_$pid.err; echo "exit=$? (tier $tier, restricted to the harnesses the native sweep flagged: $hits)" >> $out/check_$pid.txt)
-  if ! grep -q "^VIOLATION" $out/check_$pid.txt && [ "$tier" = quick ]; then
-    # the flagged harnesses may belong to the thorough tier only (larger bounds, slow ones)
-    (cd $V && VERIF_ONLY="$hits" python3 check.py $pid --tier thorough > $out/check_${pid}_thorough.txt 2>$out/check_${pid}_thorough.err; echo "exit=$? (tier thorough, restricted to the harnesses the native sweep flagged: $hits)" >> $out/check_${pid}_thorough.txt)
-    if grep -q "^VIOLATION" $out/check_${pid}_thorough.txt; then cp $out/check_${pid}_thorough.txt $out/check_$pid.txt; fi
-  fi
-fi
-if [ -z "$hits" ] || { ! grep -q "^VIOLATION" $out/check_$pid.txt && grep -q "no obligation was generated" $out/check_$pid.txt; }; then
-  (cd $V && python3 check.py $pid --tier $tier > $out/check_$pid.txt 2>$out/check_$pid.err; echo "exit=$? (tier $tier, full check; native sweep flagged nothing the restricted runs could decide)" >> $out/check_$pid.txt)
-fi
-"if [ -n "$hits" ]; then
-  (cd $V && VERIF_ONLY="$hits" python3 check.py $pid --tier $tier > $out/check_$pid.txt 2>$out/check_$pid.err; echo "exit=$? (tier $tier, restricted to the harnesses the native sweep flagged: $hits)" >> $out/check_$pid.txt)
-  if ! grep -q "^VIOLATION" $out/check_$pid.txt && [ "$tier" = quick ]; then
-    # the flagged harnesses may belong to the thorough tier only (larger bounds, slow ones)
-    (cd $V && VERIF_ONLY="$hits" python3 check.py $pid --tier thorough > $out/check_${pid}_thorough.txt 2>$out/check_${pid}_thorough.err; echo "exit=$? (tier thorough, restricted to the harnesses the native sweep flagged: $hits)" >> $out/check_${pid}_thorough.txt)
-    if grep -q "^VIOLATION" $out/check_${pid}_thorough.txt; then cp $out/check_${pid}_thorough.txt $out/check_$pid.txt; fi
-  fi
-fi
-if [ -z "$hits" ] || { ! grep -q "^VIOLATION" $out/check_$pid.txt && grep -q "no obligation was generated" $out/check_$pid.txt; }; then
-  (cd $V && python3 check.py $pid --tier $tier > $out/check_$pid.txt 2>$out/check_$pid.err; echo "exit=$? (tier $tier, full check; native sweep flagged nothing the restricted runs could decide)" >> $out/check_$pid.txt)
-fi
-Vif [ -n "$hits" ]; then
-  (cd $V && VERIF_ONLY="$hits" python3 check.py $pid --tier $tier > $out/check_$pid.txt 2>$out/check_$pid.err; echo "exit=$? (tier $tier, restricted to the harnesses the native sweep flagged: $hits)" >> $out/check_$pid.txt)
-  if ! grep -q "^VIOLATION" $out/check_$pid.txt && [ "$tier" = quick ]; then
-    # the flagged harnesses may belong to the thorough tier only (larger bounds, slow ones)
-    (cd $V && VERIF_ONLY="$hits" python3 check.py $pid --tier thorough > $out/check_${pid}_thorough.txt 2>$out/check_${pid}_thorough.err; echo "exit=$? (tier thorough, restricted to the harnesses the native sweep flagged: $hits)" >> $out/check_${pid}_thorough.txt)
-    if grep -q "^VIOLATION" $out/check_${pid}_thorough.txt; then cp $out/check_${pid}_thorough.txt $out/check_$pid.txt; fi
-  fi
-fi
-if [ -z "$hits" ] || { ! grep -q "^VIOLATION" $out/check_$pid.txt && grep -q "no obligation was generated" $out/check_$pid.txt; }; then
-  (cd $V && python3 check.py $pid --tier $tier > $out/check_$pid.txt 2>$out/check_$pid.err; echo "exit=$? (tier $tier, full check; native sweep flagged nothing the restricted runs could decide)" >> $out/check_$pid.txt)
-fi
-Iif [ -n "$hits" ]; then
-  (cd $V && VERIF_ONLY="$hits" python3 check.py $pid --tier $tier > $out/check_$pid.txt 2>$out/check_$pid.err; echo "exit=$? (tier $tier, restricted to the harnesses the native sweep flagged: $hits)" >> $out/check_$pid.txt)
-  if ! grep -q "^VIOLATION" $out/check_$pid.txt && [ "$tier" = quick ]; then
-    # the flagged harnesses may belong to the thorough tier only (larger bounds, slow ones)
-    (cd $V && VERIF_ONLY="$hits" python3 check.py $pid --tier thorough > $out/check_${pid}_thorough.txt 2>$out/check_${pid}_thorough.err; echo "exit=$? (tier thorough, restricted to the harnesses the native sweep flagged: $hits)" >> $out/check_${pid}_thorough.txt)
-    if grep -q "^VIOLATION" $out/check_${pid}_thorough.txt; then cp $out/check_${pid}_thorough.txt $out/check_$pid.txt; fi
-  fi
-fi
-if [ -z "$hits" ] || { ! grep -q "^VIOLATION" $out/check_$pid.txt && grep -q "no obligation was generated" $out/check_$pid.txt; }; then
-  (cd $V && python3 check.py $pid --tier $tier > $out/check_$pid.txt 2>$out/check_$pid.err; echo "exit=$? (tier $tier, full check; native sweep flagged nothing the restricted runs could decide)" >> $out/check_$pid.txt)
-fi
-Oif [ -n "$hits" ]; then
-  (cd $V && VERIF_ONLY="$hits" python3 check.py $pid --tier $tier > $out/check_$pid.txt 2>$out/check_$pid.err; echo "exit=$? (tier $tier, restricted to the harnesses the native sweep flagged: $hits)" >> $out/check_$pid.txt)
-  if ! grep -q "^VIOLATION" $out/check_$pid.txt && [ "$tier" = quick ]; then
-    # the flagged harnesses may belong to the thorough tier only (larger bounds, slow ones)
-    (cd $V && VERIF_ONLY="$hits" python3 check.py $pid --tier thorough > $out/check_${pid}_thorough.txt 2>$out/check_${pid}_thorough.err; echo "exit=$? (tier thorough, restricted to the harnesses the native sweep flagged: $hits)" >> $out/check_${pid}_thorough.txt)
-    if grep -q "^VIOLATION" $out/check_${pid}_thorough.txt; then cp $out/check_${pid}_thorough.txt $out/check_$pid.txt; fi
-  fi
-fi
-if [ -z "$hits" ] || { ! grep -q "^VIOLATION" $out/check_$pid.txt && grep -q "no obligation was generated" $out/check_$pid.txt; }; then
-  (cd $V && python3 check.py $pid --tier $tier > $out/check_$pid.txt 2>$out/check_$pid.err; echo "exit=$? (tier $tier, full check; native sweep flagged nothing the restricted runs could decide)" >> $out/check_$pid.txt)
-fi
-Lif [ -n "$hits" ]; then
-  (cd $V && VERIF_ONLY="$hits" python3 check.py $pid --tier $tier > $out/check_$pid.txt 2>$out/check_$pid.err; echo "exit=$? (tier $tier, restricted to the harnesses the native sweep flagged: $hits)" >> $out/check_$pid.txt)
-  if ! grep -q "^VIOLATION" $out/check_$pid.txt && [ "$tier" = quick ]; then
-    # the flagged harnesses may belong to the thorough tier only (larger bounds, slow ones)
-    (cd $V && VERIF_ONLY="$hits" python3 check.py $pid --tier thorough > $out/check_${pid}_thorough.txt 2>$out/check_${pid}_thorough.err; echo "exit=$? (tier thorough, restricted to the harnesses the native sweep flagged: $hits)" >> $out/check_${pid}_thorough.txt)
-    if grep -q "^VIOLATION" $out/check_${pid}_thorough.txt; then cp $out/check_${pid}_thorough.txt $out/check_$pid.txt; fi
-  fi
-fi
-if [ -z "$hits" ] || { ! grep -q "^VIOLATION" $out/check_$pid.txt && grep -q "no obligation was generated" $out/check_$pid.txt; }; then
-  (cd $V && python3 check.py $pid --tier $tier > $out/check_$pid.txt 2>$out/check_$pid.err; echo "exit=$? (tier $tier, full check; native sweep flagged nothing the restricted runs could decide)" >> $out/check_$pid.txt)
-fi
-Aif [ -n "$hits" ]; then
-  (cd $V && VERIF_ONLY="$hits" python3 check.py $pid --tier $tier > $out/check_$pid.txt 2>$out/check_$pid.err; echo "exit=$? (tier $tier, restricted to the harnesses the native sweep flagged: $hits)" >> $out/check_$pid.txt)
-  if ! grep -q "^VIOLATION" $out/check_$pid.txt && [ "$tier" = quick ]; then
-    # the flagged harnesses may belong to the thorough tier only (larger bounds, slow ones)
-    (cd $V && VERIF_ONLY="$hits" python3 check.py $pid --tier thorough > $out/check_${pid}_thorough.txt 2>$out/check_${pid}_thorough.err; echo "exit=$? (tier thorough, restricted to the harnesses the native sweep flagged: $hits)" >> $out/check_${pid}_thorough.txt)
-    if grep -q "^VIOLATION" $out/check_${pid}_thorough.txt; then cp $out/check_${pid}_thorough.txt $out/check_$pid.txt; fi
-  fi
-fi
-if [ -z "$hits" ] || { ! grep -q "^VIOLATION" $out/check_$pid.txt && grep -q "no obligation was generated" $out/check_$pid.txt; }; then
-  (cd $V && python3 check.py $pid --tier $tier > $out/check_$pid.txt 2>$out/check_$pid.err; echo "exit=$? (tier $tier, full check; native sweep flagged nothing the restricted runs could decide)" >> $out/check_$pid.txt)
-fi
-Tif [ -n "$hits" ]; then
-  (cd $V && VERIF_ONLY="$hits" python3 check.py $pid --tier $tier > $out/check_$pid.txt 2>$out/check_$pid.err; echo "exit=$? (tier $tier, restricted to the harnesses the native sweep flagged: $hits)" >> $out/check_$pid.txt)
-  if ! grep -q "^VIOLATION" $out/check_$pid.txt && [ "$tier" = quick ]; then
-    # the flagged harnesses may belong to the thorough tier only (larger bounds, slow ones)
-    (cd $V && VERIF_ONLY="$hits" python3 check.py $pid --tier thorough > $out/check_${pid}_thorough.txt 2>$out/check_${pid}_thorough.err; echo "exit=$? (tier thorough, restricted to the harnesses the native sweep flagged: $hits)" >> $out/check_${pid}_thorough.txt)
-    if grep -q "^VIOLATION" $out/check_${pid}_thorough.txt; then cp $out/check_${pid}_thorough.txt $out/check_$pid.txt; fi
-  fi
-fi
-if [ -z "$hits" ] || { ! grep -q "^VIOLATION" $out/check_$pid.txt && grep -q "no obligation was generated" $out/check_$pid.txt; }; then
-  (cd $V && python3 check.py $pid --tier $tier > $out/check_$pid.txt 2>$out/check_$pid.err; echo "exit=$? (tier $tier, full check; native sweep flagged nothing the restricted runs could decide)" >> $out/check_$pid.txt)
-fi
-Iif [ -n "$hits" ]; then
-  (cd $V && VERIF_ONLY="$hits" python3 check.py $pid --tier $tier > $out/check_$pid.txt 2>$out/check_$pid.err; echo "exit=$? (tier $tier, restricted to the harnesses the native sweep flagged: $hits)" >> $out/check_$pid.txt)
-  if ! grep -q "^VIOLATION" $out/check_$pid.txt && [ "$tier" = quick ]; then
-    # the flagged harnesses may belong to the thorough tier only (larger bounds, slow ones)
-    (cd $V && VERIF_ONLY="$hits" python3 check.py $pid --tier thorough > $out/check_${pid}_thorough.txt 2>$out/check_${pid}_thorough.err; echo "exit=$? (tier thorough, restricted to the harnesses the native sweep flagged: $hits)" >> $out/check_${pid}_thorough.txt)
-    if grep -q "^VIOLATION" $out/check_${pid}_thorough.txt; then cp $out/check_${pid}_thorough.txt $out/check_$pid.txt; fi
-  fi
-fi
-if [ -z "$hits" ] || { ! grep -q "^VIOLATION" $out/check_$pid.txt && grep -q "no obligation was generated" $out/check_$pid.txt; }; then
-  (cd $V && python3 check.py $pid --tier $tier > $out/check_$pid.txt 2>$out/check_$pid.err; echo "exit=$? (tier $tier, full check; native sweep flagged nothing the restricted runs could decide)" >> $out/check_$pid.txt)
-fi
-Oif [ -n "$hits" ]; then
-  (cd $V && VERIF_ONLY="$hits" python3 check.py $pid --tier $tier > $out/check_$pid.txt 2>$out/check_$pid.err; echo "exit=$? (tier $tier, restricted to the harnesses the native sweep flagged: $hits)" >> $out/check_$pid.txt)
-  if ! grep -q "^VIOLATION" $out/check_$pid.txt && [ "$tier" = quick ]; then
-    # the flagged harnesses may belong to the thorough tier only (larger bounds, slow ones)
-    (cd $V && VERIF_ONLY="$hits" python3 check.py $pid --tier thorough > $out/check_${pid}_thorough.txt 2>$out/check_${pid}_thorough.err; echo "exit=$? (tier thorough, restricted to the harnesses the native sweep flagged: $hits)" >> $out/check_${pid}_thorough.txt)
-    if grep -q "^VIOLATION" $out/check_${pid}_thorough.txt; then cp $out/check_${pid}_thorough.txt $out/check_$pid.txt; fi
-  fi
-fi
-if [ -z "$hits" ] || { ! grep -q "^VIOLATION" $out/check_$pid.txt && grep -q "no obligation was generated" $out/check_$pid.txt; }; then
-  (cd $V && python3 check.py $pid --tier $tier > $out/check_$pid.txt 2>$out/check_$pid.err; echo "exit=$? (tier $tier, full check; native sweep flagged nothing the restricted runs could decide)" >> $out/check_$pid.txt)
-fi
-Nif [ -n "$hits" ]; then
-  (cd $V && VERIF_ONLY="$hits" python3 check.py $pid --tier $tier > $out/check_$pid.txt 2>$out/check_$pid.err; echo "exit=$? (tier $tier, restricted to the harnesses the native sweep flagged: $hits)" >> $out/check_$pid.txt)
-  if ! grep -q "^VIOLATION" $out/check_$pid.txt && [ "$tier" = quick ]; then
-    # the flagged harnesses may belong to the thorough tier only (larger bounds, slow ones)
-    (cd $V && VERIF_ONLY="$hits" python3 check.py $pid --tier thorough > $out/check_${pid}_thorough.txt 2>$out/check_${pid}_thorough.err; echo "exit=$? (tier thorough, restricted to the harnesses the native sweep flagged: $hits)" >> $out/check_${pid}_thorough.txt)
-    if grep -q "^VIOLATION" $out/check_${pid}_thorough.txt; then cp $out/check_${pid}_thorough.txt $out/check_$pid.txt; fi
-  fi
-fi
-if [ -z "$hits" ] || { ! grep -q "^VIOLATION" $out/check_$pid.txt && grep -q "no obligation was generated" $out/check_$pid.txt; }; then
-  (cd $V && python3 check.py $pid --tier $tier > $out/check_$pid.txt 2>$out/check_$pid.err; echo "exit=$? (tier $tier, full check; native sweep flagged nothing the restricted runs could decide)" >> $out/check_$pid.txt)
-fi
-|if [ -n "$hits" ]; then
-  (cd $V && VERIF_ONLY="$hits" python3 check.py $pid --tier $tier > $out/check_$pid.txt 2>$out/check_$pid.err; echo "exit=$? (tier $tier, restricted to the harnesses the native sweep flagged: $hits)" >> $out/check_$pid.txt)
-  if ! grep -q "^VIOLATION" $out/check_$pid.txt && [ "$tier" = quick ]; then
-    # the flagged harnesses may belong to the thorough tier only (larger bounds, slow ones)
-    (cd $V && VERIF_ONLY="$hits" python3 check.py $pid --tier thorough > $out/check_${pid}_thorough.txt 2>$out/check_${pid}_thorough.err; echo "exit=$? (tier thorough, restricted to the harnesses the native sweep flagged: $hits)" >> $out/check_${pid}_thorough.txt)
-    if grep -q "^VIOLATION" $out/check_${pid}_thorough.txt; then cp $out/check_${pid}_thorough.txt $out/check_$pid.txt; fi
-  fi
-fi
-if [ -z "$hits" ] || { ! grep -q "^VIOLATION" $out/check_$pid.txt && grep -q "no obligation was generated" $out/check_$pid.txt; }; then
-  (cd $V && python3 check.py $pid --tier $tier > $out/check_$pid.txt 2>$out/check_$pid.err; echo "exit=$? (tier $tier, full check; native sweep flagged nothing the restricted runs could decide)" >> $out/check_$pid.txt)
-fi
-oif [ -n "$hits" ]; then
-  (cd $V && VERIF_ONLY="$hits" python3 check.py $pid --tier $tier > $out/check_$pid.txt 2>$out/check_$pid.err; echo "exit=$? (tier $tier, restricted to the harnesses the native sweep flagged: $hits)" >> $out/check_$pid.txt)
-  if ! grep -q "^VIOLATION" $out/check_$pid.txt && [ "$tier" = quick ]; then
-    # the flagged harnesses may belong to the thorough tier only (larger bounds, slow ones)
-    (cd $V && VERIF_ONLY="$hits" python3 check.py $pid --tier thorough > $out/check_${pid}_thorough.txt 2>$out/check_${pid}_thorough.err; echo "exit=$? (tier thorough, restricted to the harnesses the native sweep flagged: $hits)" >> $out/check_${pid}_thorough.txt)
-    if grep -q "^VIOLATION" $out/check_${pid}_thorough.txt; then cp $out/check_${pid}_thorough.txt $out/check_$pid.txt; fi
-  fi
-fi
-if [ -z "$hits" ] || { ! grep -q "^VIOLATION" $out/check_$pid.txt && grep -q "no obligation was generated" $out/check_$pid.txt; }; then
-  (cd $V && python3 check.py $pid --tier $tier > $out/check_$pid.txt 2>$out/check_$pid.err; echo "exit=$? (tier $tier, full check; native sweep flagged nothing the restricted runs could decide)" >> $out/check_$pid.txt)
-fi
-bif [ -n "$hits" ]; then
-  (cd $V && VERIF_ONLY="$hits" python3 check.py $pid --tier $tier > $out/check_$pid.txt 2>$out/check_$pid.err; echo "exit=$? (tier $tier, restricted to the harnesses the native sweep flagged: $hits)" >> $out/check_$pid.txt)
-  if ! grep -q "^VIOLATION" $out/check_$pid.txt && [ "$tier" = quick ]; then
-    # the flagged harnesses may belong to the thorough tier only (larger bounds, slow ones)
-    (cd $V && VERIF_ONLY="$hits" python3 check.py $pid --tier thorough > $out/check_${pid}_thorough.txt 2>$out/check_${pid}_thorough.err; echo "exit=$? (tier thorough, restricted to the harnesses the native sweep flagged: $hits)" >> $out/check_${pid}_thorough.txt)
-    if grep -q "^VIOLATION" $out/check_${pid}_thorough.txt; then cp $out/check_${pid}_thorough.txt $out/check_$pid.txt; fi
-  fi
-fi
-if [ -z "$hits" ] || { ! grep -q "^VIOLATION" $out/check_$pid.txt && grep -q "no obligation was generated" $out/check_$pid.txt; }; then
-  (cd $V && python3 check.py $pid --tier $tier > $out/check_$pid.txt 2>$out/check_$pid.err; echo "exit=$? (tier $tier, full check; native sweep flagged nothing the restricted runs could decide)" >> $out/check_$pid.txt)
-fi
-lif [ -n "$hits" ]; then
-  (cd $V && VERIF_ONLY="$hits" python3 check.py $pid --tier $tier > $out/check_$pid.txt 2>$out/check_$pid.err; echo "exit=$? (tier $tier, restricted to the harnesses the native sweep flagged: $hits)" >> $out/check_$pid.txt)
-  if ! grep -q "^VIOLATION" $out/check_$pid.txt && [ "$tier" = quick ]; then
-    # the flagged harnesses may belong to the thorough tier only (larger bounds, slow ones)
-    (cd $V && VERIF_ONLY="$hits" python3 check.py $pid --tier thorough > $out/check_${pid}_thorough.txt 2>$out/check_${pid}_thorough.err; echo "exit=$? (tier thorough, restricted to the harnesses the native sweep flagged: $hits)" >> $out/check_${pid}_thorough.txt)
-    if grep -q "^VIOLATION" $out/check_${pid}_thorough.txt; then cp $out/check_${pid}_thorough.txt $out/check_$pid.txt; fi
-  fi
-fi
-if [ -z "$hits" ] || { ! grep -q "^VIOLATION" $out/check_$pid.txt && grep -q "no obligation was generated" $out/check_$pid.txt; }; then
-  (cd $V && python3 check.py $pid --tier $tier > $out/check_$pid.txt 2>$out/check_$pid.err; echo "exit=$? (tier $tier, full check; native sweep flagged nothing the restricted runs could decide)" >> $out/check_$pid.txt)
-fi
-iif [ -n "$hits" ]; then
-  (cd $V && VERIF_ONLY="$hits" python3 check.py $pid --tier $tier > $out/check_$pid.txt 2>$out/check_$pid.err; echo "exit=$? (tier $tier, restricted to the harnesses the native sweep flagged: $hits)" >> $out/check_$pid.txt)
-  if ! grep -q "^VIOLATION" $out/check_$pid.txt && [ "$tier" = quick ]; then
-    # the flagged harnesses may belong to the thorough tier only (larger bounds, slow ones)
-    (cd $V && VERIF_ONLY="$hits" python3 check.py $pid --tier thorough > $out/check_${pid}_thorough.txt 2>$out/check_${pid}_thorough.err; echo "exit=$? (tier thorough, restricted to the harnesses the native sweep flagged: $hits)" >> $out/check_${pid}_thorough.txt)
-    if grep -q "^VIOLATION" $out/check_${pid}_thorough.txt; then cp $out/check_${pid}_thorough.txt $out/check_$pid.txt; fi
-  fi
-fi
-if [ -z "$hits" ] || { ! grep -q "^VIOLATION" $out/check_$pid.txt && grep -q "no obligation was generated" $out/check_$pid.txt; }; then
-  (cd $V && python3 check.py $pid --tier $tier > $out/check_$pid.txt 2>$out/check_$pid.err; echo "exit=$? (tier $tier, full check; native sweep flagged nothing the restricted runs could decide)" >> $out/check_$pid.txt)
-fi
-gif [ -n "$hits" ]; then
-  (cd $V && VERIF_ONLY="$hits" python3 check.py $pid --tier $tier > $out/check_$pid.txt 2>$out/check_$pid.err; echo "exit=$? (tier $tier, restricted to the harnesses the native sweep flagged: $hits)" >> $out/check_$pid.txt)
-  if ! grep -q "^VIOLATION" $out/check_$pid.txt && [ "$tier" = quick ]; then
-    # the flagged harnesses may belong to the thorough tier only (larger bounds, slow ones)
-    (cd $V && VERIF_ONLY="$hits" python3 check.py $pid --tier thorough > $out/check_${pid}_thorough.txt 2>$out/check_${pid}_thorough.err; echo "exit=$? (tier thorough, restricted to the harnesses the native sweep flagged: $hits)" >> $out/check_${pid}_thorough.txt)
-    if grep -q "^VIOLATION" $out/check_${pid}_thorough.txt; then cp $out/check_${pid}_thorough.txt $out/check_$pid.txt; fi
-  fi
-fi
-if [ -z "$hits" ] || { ! grep -q "^VIOLATION" $out/check_$pid.txt && grep -q "no obligation was generated" $out/check_$pid.txt; }; then
-  (cd $V && python3 check.py $pid --tier $tier > $out/check_$pid.txt 2>$out/check_$pid.err; echo "exit=$? (tier $tier, full check; native sweep flagged nothing the restricted runs could decide)" >> $out/check_$pid.txt)
-fi
-aif [ -n "$hits" ]; then
-  (cd $V && VERIF_ONLY="$hits" python3 check.py $pid --tier $tier > $out/check_$pid.txt 2>$out/check_$pid.err; echo "exit=$? (tier $tier, restricted to the harnesses the native sweep flagged: $hits)" >> $out/check_$pid.txt)
-  if ! grep -q "^VIOLATION" $out/check_$pid.txt && [ "$tier" = quick ]; then
-    # the flagged harnesses may belong to the thorough tier only (larger bounds, slow ones)
-    (cd $V && VERIF_ONLY="$hits" python3 check.py $pid --tier thorough > $out/check_${pid}_thorough.txt 2>$out/check_${pid}_thorough.err; echo "exit=$? (tier thorough, restricted to the harnesses the native sweep flagged: $hits)" >> $out/check_${pid}_thorough.txt)
-    if grep -q "^VIOLATION" $out/check_${pid}_thorough.txt; then cp $out/check_${pid}_thorough.txt $out/check_$pid.txt; fi
-  fi
-fi
-if [ -z "$hits" ] || { ! grep -q "^VIOLATION" $out/check_$pid.txt && grep -q "no obligation was generated" $out/check_$pid.txt; }; then
-  (cd $V && python3 check.py $pid --tier $tier > $out/check_$pid.txt 2>$out/check_$pid.err; echo "exit=$? (tier $tier, full check; native sweep flagged nothing the restricted runs could decide)" >> $out/check_$pid.txt)
-fi
-tif [ -n "$hits" ]; then
-  (cd $V && VERIF_ONLY="$hits" python3 check.py $pid --tier $tier > $out/check_$pid.txt 2>$out/check_$pid.err; echo "exit=$? (tier $tier, restricted to the harnesses the native sweep flagged: $hits)" >> $out/check_$pid.txt)
-  if ! grep -q "^VIOLATION" $out/check_$pid.txt && [ "$tier" = quick ]; then
-    # the flagged harnesses may belong to the thorough tier only (larger bounds, slow ones)
-    (cd $V && VERIF_ONLY="$hits" python3 check.py $pid --tier thorough > $out/check_${pid}_thorough.txt 2>$out/check_${pid}_thorough.err; echo "exit=$? (tier thorough, restricted to the harnesses the native sweep flagged: $hits)" >> $out/check_${pid}_thorough.txt)
-    if grep -q "^VIOLATION" $out/check_${pid}_thorough.txt; then cp $out/check_${pid}_thorough.txt $out/check_$pid.txt; fi
-  fi
-fi
-if [ -z "$hits" ] || { ! grep -q "^VIOLATION" $out/check_$pid.txt && grep -q "no obligation was generated" $out/check_$pid.txt; }; then
-  (cd $V && python3 check.py $pid --tier $tier > $out/check_$pid.txt 2>$out/check_$pid.err; echo "exit=$? (tier $tier, full check; native sweep flagged nothing the restricted runs could decide)" >> $out/check_$pid.txt)
-fi
-iif [ -n "$hits" ]; then
-  (cd $V && VERIF_ONLY="$hits" python3 check.py $pid --tier $tier > $out/check_$pid.txt 2>$out/check_$pid.err; echo "exit=$? (tier $tier, restricted to the harnesses the native sweep flagged: $hits)" >> $out/check_$pid.txt)
-  if ! grep -q "^VIOLATION" $out/check_$pid.txt && [ "$tier" = quick ]; then
-    # the flagged harnesses may belong to the thorough tier only (larger bounds, slow ones)
-    (cd $V && VERIF_ONLY="$hits" python3 check.py $pid --tier thorough > $out/check_${pid}_thorough.txt 2>$out/check_${pid}_thorough.err; echo "exit=$? (tier thorough, restricted to the harnesses the native sweep flagged: $hits)" >> $out/check_${pid}_thorough.txt)
-    if grep -q "^VIOLATION" $out/check_${pid}_thorough.txt; then cp $out/check_${pid}_thorough.txt $out/check_$pid.txt; fi
-  fi
-fi
-if [ -z "$hits" ] || { ! grep -q "^VIOLATION" $out/check_$pid.txt && grep -q "no obligation was generated" $out/check_$pid.txt; }; then
-  (cd $V && python3 check.py $pid --tier $tier > $out/check_$pid.txt 2>$out/check_$pid.err; echo "exit=$? (tier $tier, full check; native sweep flagged nothing the restricted runs could decide)" >> $out/check_$pid.txt)
-fi
-oif [ -n "$hits" ]; then
-  (cd $V && VERIF_ONLY="$hits" python3 check.py $pid --tier $tier > $out/check_$pid.txt 2>$out/check_$pid.err; echo "exit=$? (tier $tier, restricted to the harnesses the native sweep flagged: $hits)" >> $out/check_$pid.txt)
-  if ! grep -q "^VIOLATION" $out/check_$pid.txt && [ "$tier" = quick ]; then
-    # the flagged harnesses may belong to the thorough tier only (larger bounds, slow ones)
-    (cd $V && VERIF_ONLY="$hits" python3 check.py $pid --tier thorough > $out/check_${pid}_thorough.txt 2>$out/check_${pid}_thorough.err; echo "exit=$? (tier thorough, restricted to the harnesses the native sweep flagged: $hits)" >> $out/check_${pid}_thorough.txt)
-    if grep -q "^VIOLATION" $out/check_${pid}_thorough.txt; then cp $out/check_${pid}_thorough.txt $out/check_$pid.txt; fi
-  fi
-fi
-if [ -z "$hits" ] || { ! grep -q "^VIOLATION" $out/check_$pid.txt && grep -q "no obligation was generated" $out/check_$pid.txt; }; then
-  (cd $V && python3 check.py $pid --tier $tier > $out/check_$pid.txt 2>$out/check_$pid.err; echo "exit=$? (tier $tier, full check; native sweep flagged nothing the restricted runs could decide)" >> $out/check_$pid.txt)
-fi
-nif [ -n "$hits" ]; then
-  (cd $V && VERIF_ONLY="$hits" python3 check.py $pid --tier $tier > $out/check_$pid.txt 2>$out/check_$pid.err; echo "exit=$? (tier $tier, restricted to the harnesses the native sweep flagged: $hits)" >> $out/check_$pid.txt)
-  if ! grep -q "^VIOLATION" $out/check_$pid.txt && [ "$tier" = quick ]; then
-    # the flagged harnesses may belong to the thorough tier only (larger bounds, slow ones)
-    (cd $V && VERIF_ONLY="$hits" python3 check.py $pid --tier thorough > $out/check_${pid}_thorough.txt 2>$out/check_${pid}_thorough.err; echo "exit=$? (tier thorough, restricted to the harnesses the native sweep flagged: $hits)" >> $out/check_${pid}_thorough.txt)
-    if grep -q "^VIOLATION" $out/check_${pid}_thorough.txt; then cp $out/check_${pid}_thorough.txt $out/check_$pid.txt; fi
-  fi
-fi
-if [ -z "$hits" ] || { ! grep -q "^VIOLATION" $out/check_$pid.txt && grep -q "no obligation was generated" $out/check_$pid.txt; }; then
-  (cd $V && python3 check.py $pid --tier $tier > $out/check_$pid.txt 2>$out/check_$pid.err; echo "exit=$? (tier $tier, full check; native sweep flagged nothing the restricted runs could decide)" >> $out/check_$pid.txt)
-fi
- if [ -n "$hits" ]; then
-  (cd $V && VERIF_ONLY="$hits" python3 check.py $pid --tier $tier > $out/check_$pid.txt 2>$out/check_$pid.err; echo "exit=$? (tier $tier, restricted to the harnesses the native sweep flagged: $hits)" >> $out/check_$pid.txt)
-  if ! grep -q "^VIOLATION" $out/check_$pid.txt && [ "$tier" = quick ]; then
-    # the flagged harnesses may belong to the thorough tier only (larger bounds, slow ones)
-    (cd $V && VERIF_ONLY="$hits" python3 check.py $pid --tier thorough > $out/check_${pid}_thorough.txt 2>$out/check_${pid}_thorough.err; echo "exit=$? (tier thorough, restricted to the harnesses the native sweep flagged: $hits)" >> $out/check_${pid}_thorough.txt)
-    if grep -q "^VIOLATION" $out/check_${pid}_thorough.txt; then cp $out/check_${pid}_thorough.txt $out/check_$pid.txt; fi
-  fi
-fi
-if [ -z "$hits" ] || { ! grep -q "^VIOLATION" $out/check_$pid.txt && grep -q "no obligation was generated" $out/check_$pid.txt; }; then
-  (cd $V && python3 check.py $pid --tier $tier > $out/check_$pid.txt 2>$out/check_$pid.err; echo "exit=$? (tier $tier, full check; native sweep flagged nothing the restricted runs could decide)" >> $out/check_$pid.txt)
-fi
-.if [ -n "$hits" ]; then
-  (cd $V && VERIF_ONLY="$hits" python3 check.py $pid --tier $tier > $out/check_$pid.txt 2>$out/check_$pid.err; echo "exit=$? (tier $tier, restricted to the harnesses the native sweep flagged: $hits)" >> $out/check_$pid.txt)
-  if ! grep -q "^VIOLATION" $out/check_$pid.txt && [ "$tier" = quick ]; then
-    # the flagged harnesses may belong to the thorough tier only (larger bounds, slow ones)
-    (cd $V && VERIF_ONLY="$hits" python3 check.py $pid --tier thorough > $out/check_${pid}_thorough.txt 2>$out/check_${pid}_thorough.err; echo "exit=$? (tier thorough, restricted to the harnesses the native sweep flagged: $hits)" >> $out/check_${pid}_thorough.txt)
-    if grep -q "^VIOLATION" $out/check_${pid}_thorough.txt; then cp $out/check_${pid}_thorough.txt $out/check_$pid.txt; fi
-  fi
-fi
-if [ -z "$hits" ] || { ! grep -q "^VIOLATION" $out/check_$pid.txt && grep -q "no obligation was generated" $out/check_$pid.txt; }; then
-  (cd $V && python3 check.py $pid --tier $tier > $out/check_$pid.txt 2>$out/check_$pid.err; echo "exit=$? (tier $tier, full check; native sweep flagged nothing the restricted runs could decide)" >> $out/check_$pid.txt)
-fi
-*if [ -n "$hits" ]; then
-  (cd $V && VERIF_ONLY="$hits" python3 check.py $pid --tier $tier > $out/check_$pid.txt 2>$out/check_$pid.err; echo "exit=$? (tier $tier, restricted to the harnesses the native sweep flagged: $hits)" >> $out/check_$pid.txt)
-  if ! grep -q "^VIOLATION" $out/check_$pid.txt && [ "$tier" = quick ]; then
-    # the flagged harnesses may belong to the thorough tier only (larger bounds, slow ones)
-    (cd $V && VERIF_ONLY="$hits" python3 check.py $pid --tier thorough > $out/check_${pid}_thorough.txt 2>$out/check_${pid}_thorough.err; echo "exit=$? (tier thorough, restricted to the harnesses the native sweep flagged: $hits)" >> $out/check_${pid}_thorough.txt)
-    if grep -q "^VIOLATION" $out/check_${pid}_thorough.txt; then cp $out/check_${pid}_thorough.txt $out/check_$pid.txt; fi
-  fi
-fi
-if [ -z "$hits" ] || { ! grep -q "^VIOLATION" $out/check_$pid.txt && grep -q "no obligation was generated" $out/check_$pid.txt; }; then
-  (cd $V && python3 check.py $pid --tier $tier > $out/check_$pid.txt 2>$out/check_$pid.err; echo "exit=$? (tier $tier, full check; native sweep flagged nothing the restricted runs could decide)" >> $out/check_$pid.txt)
-fi
- if [ -n "$hits" ]; then
-  (cd $V && VERIF_ONLY="$hits" python3 check.py $pid --tier $tier > $out/check_$pid.txt 2>$out/check_$pid.err; echo "exit=$? (tier $tier, restricted to the harnesses the native sweep flagged: $hits)" >> $out/check_$pid.txt)
-  if ! grep -q "^VIOLATION" $out/check_$pid.txt && [ "$tier" = quick ]; then
-    # the flagged harnesses may belong to the thorough tier only (larger bounds, slow ones)
-    (cd $V && VERIF_ONLY="$hits" python3 check.py $pid --tier thorough > $out/check_${pid}_thorough.txt 2>$out/check_${pid}_thorough.err; echo "exit=$? (tier thorough, restricted to the harnesses the native sweep flagged: $hits)" >> $out/check_${pid}_thorough.txt)
-    if grep -q "^VIOLATION" $out/check_${pid}_thorough.txt; then cp $out/check_${pid}_thorough.txt $out/check_$pid.txt; fi
-  fi
-fi
-if [ -z "$hits" ] || { ! grep -q "^VIOLATION" $out/check_$pid.txt && grep -q "no obligation was generated" $out/check_$pid.txt; }; then
-  (cd $V && python3 check.py $pid --tier $tier > $out/check_$pid.txt 2>$out/check_$pid.err; echo "exit=$? (tier $tier, full check; native sweep flagged nothing the restricted runs could decide)" >> $out/check_$pid.txt)
-fi
-fif [ -n "$hits" ]; then
-  (cd $V && VERIF_ONLY="$hits" python3 check.py $pid --tier $tier > $out/check_$pid.txt 2>$out/check_$pid.err; echo "exit=$? (tier $tier, restricted to the harnesses the native sweep flagged: $hits)" >> $out/check_$pid.txt)
-  if ! grep -q "^VIOLATION" $out/check_$pid.txt && [ "$tier" = quick ]; then
-    # the flagged harnesses may belong to the thorough tier only (larger bounds, slow ones)
-    (cd $V && VERIF_ONLY="$hits" python3 check.py $pid --tier thorough > $out/check_${pid}_thorough.txt 2>$out/check_${pid}_thorough.err; echo "exit=$? (tier thorough, restricted to the harnesses the native sweep flagged: $hits)" >> $out/check_${pid}_thorough.txt)
-    if grep -q "^VIOLATION" $out/check_${pid}_thorough.txt; then cp $out/check_${pid}_thorough.txt $out/check_$pid.txt; fi
-  fi
-fi
-if [ -z "$hits" ] || { ! grep -q "^VIOLATION" $out/check_$pid.txt && grep -q "no obligation was generated" $out/check_$pid.txt; }; then
-  (cd $V && python3 check.py $pid --tier $tier > $out/check_$pid.txt 2>$out/check_$pid.err; echo "exit=$? (tier $tier, full check; native sweep flagged nothing the restricted runs could decide)" >> $out/check_$pid.txt)
-fi
-aif [ -n "$hits" ]; then
-  (cd $V && VERIF_ONLY="$hits" python3 check.py $pid --tier $tier > $out/check_$pid.txt 2>$out/check_$pid.err; echo "exit=$? (tier $tier, restricted to the harnesses the native sweep flagged: $hits)" >> $out/check_$pid.txt)
-  if ! grep -q "^VIOLATION" $out/check_$pid.txt && [ "$tier" = quick ]; then
-    # the flagged harnesses may belong to the thorough tier only (larger bounds, slow ones)
-    (cd $V && VERIF_ONLY="$hits" python3 check.py $pid --tier thorough > $out/check_${pid}_thorough.txt 2>$out/check_${pid}_thorough.err; echo "exit=$? (tier thorough, restricted to the harnesses the native sweep flagged: $hits)" >> $out/check_${pid}_thorough.txt)
-    if grep -q "^VIOLATION" $out/check_${pid}_thorough.txt; then cp $out/check_${pid}_thorough.txt $out/check_$pid.txt; fi
-  fi
-fi
-if [ -z "$hits" ] || { ! grep -q "^VIOLATION" $out/check_$pid.txt && grep -q "no obligation was generated" $out/check_$pid.txt; }; then
-  (cd $V && python3 check.py $pid --tier $tier > $out/check_$pid.txt 2>$out/check_$pid.err; echo "exit=$? (tier $tier, full check; native sweep flagged nothing the restricted runs could decide)" >> $out/check_$pid.txt)
-fi
-iif [ -n "$hits" ]; then
-  (cd $V && VERIF_ONLY="$hits" python3 check.py $pid --tier $tier > $out/check_$pid.txt 2>$out/check_$pid.err; echo "exit=$? (tier $tier, restricted to the harnesses the native sweep flagged: $hits)" >> $out/check_$pid.txt)
-  if ! grep -q "^VIOLATION" $out/check_$pid.txt && [ "$tier" = quick ]; then
-    # the flagged harnesses may belong to the thorough tier only (larger bounds, slow ones)
-    (cd $V && VERIF_ONLY="$hits" python3 check.py $pid --tier thorough > $out/check_${pid}_thorough.txt 2>$out/check_${pid}_thorough.err; echo "exit=$? (tier thorough, restricted to the harnesses the native sweep flagged: $hits)" >> $out/check_${pid}_thorough.txt)
-    if grep -q "^VIOLATION" $out/check_${pid}_thorough.txt; then cp $out/check_${pid}_thorough.txt $out/check_$pid.txt; fi
-  fi
-fi
-if [ -z "$hits" ] || { ! grep -q "^VIOLATION" $out/check_$pid.txt && grep -q "no obligation was generated" $out/check_$pid.txt; }; then
-  (cd $V && python3 check.py $pid --tier $tier > $out/check_$pid.txt 2>$out/check_$pid.err; echo "exit=$? (tier $tier, full check; native sweep flagged nothing the restricted runs could decide)" >> $out/check_$pid.txt)
-fi
-lif [ -n "$hits" ]; then
-  (cd $V && VERIF_ONLY="$hits" python3 check.py $pid --tier $tier > $out/check_$pid.txt 2>$out/check_$pid.err; echo "exit=$? (tier $tier, restricted to the harnesses the native sweep flagged: $hits)" >> $out/check_$pid.txt)
-  if ! grep -q "^VIOLATION" $out/check_$pid.txt && [ "$tier" = quick ]; then
-    # the flagged harnesses may belong to the thorough tier only (larger bounds, slow ones)
-    (cd $V && VERIF_ONLY="$hits" python3 check.py $pid --tier thorough > $out/check_${pid}_thorough.txt 2>$out/check_${pid}_thorough.err; echo "exit=$? (tier thorough, restricted to the harnesses the native sweep flagged: $hits)" >> $out/check_${pid}_thorough.txt)
-    if grep -q "^VIOLATION" $out/check_${pid}_thorough.txt; then cp $out/check_${pid}_thorough.txt $out/check_$pid.txt; fi
-  fi
-fi
-if [ -z "$hits" ] || { ! grep -q "^VIOLATION" $out/check_$pid.txt && grep -q "no obligation was generated" $out/check_$pid.txt; }; then
-  (cd $V && python3 check.py $pid --tier $tier > $out/check_$pid.txt 2>$out/check_$pid.err; echo "exit=$? (tier $tier, full check; native sweep flagged nothing the restricted runs could decide)" >> $out/check_$pid.txt)
-fi
-sif [ -n "$hits" ]; then
-  (cd $V && VERIF_ONLY="$hits" python3 check.py $pid --tier $tier > $out/check_$pid.txt 2>$out/check_$pid.err; echo "exit=$? (tier $tier, restricted to the harnesses the native sweep flagged: $hits)" >> $out/check_$pid.txt)
-  if ! grep -q "^VIOLATION" $out/check_$pid.txt && [ "$tier" = quick ]; then
-    # the flagged harnesses may belong to the thorough tier only (larger bounds, slow ones)
-    (cd $V && VERIF_ONLY="$hits" python3 check.py $pid --tier thorough > $out/check_${pid}_thorough.txt 2>$out/check_${pid}_thorough.err; echo "exit=$? (tier thorough, restricted to the harnesses the native sweep flagged: $hits)" >> $out/check_${pid}_thorough.txt)
-    if grep -q "^VIOLATION" $out/check_${pid}_thorough.txt; then cp $out/check_${pid}_thorough.txt $out/check_$pid.txt; fi
-  fi
-fi
-if [ -z "$hits" ] || { ! grep -q "^VIOLATION" $out/check_$pid.txt && grep -q "no obligation was generated" $out/check_$pid.txt; }; then
-  (cd $V && python3 check.py $pid --tier $tier > $out/check_$pid.txt 2>$out/check_$pid.err; echo "exit=$? (tier $tier, full check; native sweep flagged nothing the restricted runs could decide)" >> $out/check_$pid.txt)
-fi
- if [ -n "$hits" ]; then
-  (cd $V && VERIF_ONLY="$hits" python3 check.py $pid --tier $tier > $out/check_$pid.txt 2>$out/check_$pid.err; echo "exit=$? (tier $tier, restricted to the harnesses the native sweep flagged: $hits)" >> $out/check_$pid.txt)
-  if ! grep -q "^VIOLATION" $out/check_$pid.txt && [ "$tier" = quick ]; then
-    # the flagged harnesses may belong to the thorough tier only (larger bounds, slow ones)
-    (cd $V && VERIF_ONLY="$hits" python3 check.py $pid --tier thorough > $out/check_${pid}_thorough.txt 2>$out/check_${pid}_thorough.err; echo "exit=$? (tier thorough, restricted to the harnesses the native sweep flagged: $hits)" >> $out/check_${pid}_thorough.txt)
-    if grep -q "^VIOLATION" $out/check_${pid}_thorough.txt; then cp $out/check_${pid}_thorough.txt $out/check_$pid.txt; fi
-  fi
-fi
-if [ -z "$hits" ] || { ! grep -q "^VIOLATION" $out/check_$pid.txt && grep -q "no obligation was generated" $out/check_$pid.txt; }; then
-  (cd $V && python3 check.py $pid --tier $tier > $out/check_$pid.txt 2>$out/check_$pid.err; echo "exit=$? (tier $tier, full check; native sweep flagged nothing the restricted runs could decide)" >> $out/check_$pid.txt)
-fi
-nif [ -n "$hits" ]; then
-  (cd $V && VERIF_ONLY="$hits" python3 check.py $pid --tier $tier > $out/check_$pid.txt 2>$out/check_$pid.err; echo "exit=$? (tier $tier, restricted to the harnesses the native sweep flagged: $hits)" >> $out/check_$pid.txt)
-  if ! grep -q "^VIOLATION" $out/check_$pid.txt && [ "$tier" = quick ]; then
-    # the flagged harnesses may belong to the thorough tier only (larger bounds, slow ones)
-    (cd $V && VERIF_ONLY="$hits" python3 check.py $pid --tier thorough > $out/check_${pid}_thorough.txt 2>$out/check_${pid}_thorough.err; echo "exit=$? (tier thorough, restricted to the harnesses the native sweep flagged: $hits)" >> $out/check_${pid}_thorough.txt)
-    if grep -q "^VIOLATION" $out/check_${pid}_thorough.txt; then cp $out/check_${pid}_thorough.txt $out/check_$pid.txt; fi
-  fi
-fi
-if [ -z "$hits" ] || { ! grep -q "^VIOLATION" $out/check_$pid.txt && grep -q "no obligation was generated" $out/check_$pid.txt; }; then
-  (cd $V && python3 check.py $pid --tier $tier > $out/check_$pid.txt 2>$out/check_$pid.err; echo "exit=$? (tier $tier, full check; native sweep flagged nothing the restricted runs could decide)" >> $out/check_$pid.txt)
-fi
-oif [ -n "$hits" ]; then
-  (cd $V && VERIF_ONLY="$hits" python3 check.py $pid --tier $tier > $out/check_$pid.txt 2>$out/check_$pid.err; echo "exit=$? (tier $tier, restricted to the harnesses the native sweep flagged: $hits)" >> $out/check_$pid.txt)
-  if ! grep -q "^VIOLATION" $out/check_$pid.txt && [ "$tier" = quick ]; then
-    # the flagged harnesses may belong to the thorough tier only (larger bounds, slow ones)
-    (cd $V && VERIF_ONLY="$hits" python3 check.py $pid --tier thorough > $out/check_${pid}_thorough.txt 2>$out/check_${pid}_thorough.err; echo "exit=$? (tier thorough, restricted to the harnesses the native sweep flagged: $hits)" >> $out/check_${pid}_thorough.txt)
-    if grep -q "^VIOLATION" $out/check_${pid}_thorough.txt; then cp $out/check_${pid}_thorough.txt $out/check_$pid.txt; fi
-  fi
-fi
-if [ -z "$hits" ] || { ! grep -q "^VIOLATION" $out/check_$pid.txt && grep -q "no obligation was generated" $out/check_$pid.txt; }; then
-  (cd $V && python3 check.py $pid --tier $tier > $out/check_$pid.txt 2>$out/check_$pid.err; echo "exit=$? (tier $tier, full check; native sweep flagged nothing the restricted runs could decide)" >> $out/check_$pid.txt)
-fi
-wif [ -n "$hits" ]; then
-  (cd $V && VERIF_ONLY="$hits" python3 check.py $pid --tier $tier > $out/check_$pid.txt 2>$out/check_$pid.err; echo "exit=$? (tier $tier, restricted to the harnesses the native sweep flagged: $hits)" >> $out/check_$pid.txt)
-  if ! grep -q "^VIOLATION" $out/check_$pid.txt && [ "$tier" = quick ]; then
-    # the flagged harnesses may belong to the thorough tier only (larger bounds, slow ones)
-    (cd $V && VERIF_ONLY="$hits" python3 check.py $pid --tier thorough > $out/check_${pid}_thorough.txt 2>$out/check_${pid}_thorough.err; echo "exit=$? (tier thorough, restricted to the harnesses the native sweep flagged: $hits)" >> $out/check_${pid}_thorough.txt)
-    if grep -q "^VIOLATION" $out/check_${pid}_thorough.txt; then cp $out/check_${pid}_thorough.txt $out/check_$pid.txt; fi
-  fi
-fi
-if [ -z "$hits" ] || { ! grep -q "^VIOLATION" $out/check_$pid.txt && grep -q "no obligation was generated" $out/check_$pid.txt; }; then
-  (cd $V && python3 check.py $pid --tier $tier > $out/check_$pid.txt 2>$out/check_$pid.err; echo "exit=$? (tier $tier, full check; native sweep flagged nothing the restricted runs could decide)" >> $out/check_$pid.txt)
-fi
-|if [ -n "$hits" ]; then
-  (cd $V && VERIF_ONLY="$hits" python3 check.py $pid --tier $tier > $out/check_$pid.txt 2>$out/check_$pid.err; echo "exit=$? (tier $tier, restricted to the harnesses the native sweep flagged: $hits)" >> $out/check_$pid.txt)
-  if ! grep -q "^VIOLATION" $out/check_$pid.txt && [ "$tier" = quick ]; then
-    # the flagged harnesses may belong to the thorough tier only (larger bounds, slow ones)
-    (cd $V && VERIF_ONLY="$hits" python3 check.py $pid --tier thorough > $out/check_${pid}_thorough.txt 2>$out/check_${pid}_thorough.err; echo "exit=$? (tier thorough, restricted to the harnesses the native sweep flagged: $hits)" >> $out/check_${pid}_thorough.txt)
-    if grep -q "^VIOLATION" $out/check_${pid}_thorough.txt; then cp $out/check_${pid}_thorough.txt $out/check_$pid.txt; fi
-  fi
-fi
-if [ -z "$hits" ] || { ! grep -q "^VIOLATION" $out/check_$pid.txt && grep -q "no obligation was generated" $out/check_$pid.txt; }; then
-  (cd $V && python3 check.py $pid --tier $tier > $out/check_$pid.txt 2>$out/check_$pid.err; echo "exit=$? (tier $tier, full check; native sweep flagged nothing the restricted runs could decide)" >> $out/check_$pid.txt)
-fi
-eif [ -n "$hits" ]; then
-  (cd $V && VERIF_ONLY="$hits" python3 check.py $pid --tier $tier > $out/check_$pid.txt 2>$out/check_$pid.err; echo "exit=$? (tier $tier, restricted to the harnesses the native sweep flagged: $hits)" >> $out/check_$pid.txt)
-  if ! grep -q "^VIOLATION" $out/check_$pid.txt && [ "$tier" = quick ]; then
-    # the flagged harnesses may belong to the thorough tier only (larger bounds, slow ones)
-    (cd $V && VERIF_ONLY="$hits" python3 check.py $pid --tier thorough > $out/check_${pid}_thorough.txt 2>$out/check_${pid}_thorough.err; echo "exit=$? (tier thorough, restricted to the harnesses the native sweep flagged: $hits)" >> $out/check_${pid}_thorough.txt)
-    if grep -q "^VIOLATION" $out/check_${pid}_thorough.txt; then cp $out/check_${pid}_thorough.txt $out/check_$pid.txt; fi
-  fi
-fi
-if [ -z "$hits" ] || { ! grep -q "^VIOLATION" $out/check_$pid.txt && grep -q "no obligation was generated" $out/check_$pid.txt; }; then
-  (cd $V && python3 check.py $pid --tier $tier > $out/check_$pid.txt 2>$out/check_$pid.err; echo "exit=$? (tier $tier, full check; native sweep flagged nothing the restricted runs could decide)" >> $out/check_$pid.txt)
-fi
-xif [ -n "$hits" ]; then
-  (cd $V && VERIF_ONLY="$hits" python3 check.py $pid --tier $tier > $out/check_$pid.txt 2>$out/check_$pid.err; echo "exit=$? (tier $tier, restricted to the harnesses the native sweep flagged: $hits)" >> $out/check_$pid.txt)
-  if ! grep -q "^VIOLATION" $out/check_$pid.txt && [ "$tier" = quick ]; then
-    # the flagged harnesses may belong to the thorough tier only (larger bounds, slow ones)
-    (cd $V && VERIF_ONLY="$hits" python3 check.py $pid --tier thorough > $out/check_${pid}_thorough.txt 2>$out/check_${pid}_thorough.err; echo "exit=$? (tier thorough, restricted to the harnesses the native sweep flagged: $hits)" >> $out/check_${pid}_thorough.txt)
-    if grep -q "^VIOLATION" $out/check_${pid}_thorough.txt; then cp $out/check_${pid}_thorough.txt $out/check_$pid.txt; fi
-  fi
-fi
-if [ -z "$hits" ] || { ! grep -q "^VIOLATION" $out/check_$pid.txt && grep -q "no obligation was generated" $out/check_$pid.txt; }; then
-  (cd $V && python3 check.py $pid --tier $tier > $out/check_$pid.txt 2>$out/check_$pid.err; echo "exit=$? (tier $tier, full check; native sweep flagged nothing the restricted runs could decide)" >> $out/check_$pid.txt)
-fi
-iif [ -n "$hits" ]; then
-  (cd $V && VERIF_ONLY="$hits" python3 check.py $pid --tier $tier > $out/check_$pid.txt 2>$out/check_$pid.err; echo "exit=$? (tier $tier, restricted to the harnesses the native sweep flagged: $hits)" >> $out/check_$pid.txt)
-  if ! grep -q "^VIOLATION" $out/check_$pid.txt && [ "$tier" = quick ]; then
-    # the flagged harnesses may belong to the thorough tier only (larger bounds, slow ones)
-    (cd $V && VERIF_ONLY="$hits" python3 check.py $pid --tier thorough > $out/check_${pid}_thorough.txt 2>$out/check_${pid}_thorough.err; echo "exit=$? (tier thorough, restricted to the harnesses the native sweep flagged: $hits)" >> $out/check_${pid}_thorough.txt)
-    if grep -q "^VIOLATION" $out/check_${pid}_thorough.txt; then cp $out/check_${pid}_thorough.txt $out/check_$pid.txt; fi
-  fi
-fi
-if [ -z "$hits" ] || { ! grep -q "^VIOLATION" $out/check_$pid.txt && grep -q "no obligation was generated" $out/check_$pid.txt; }; then
-  (cd $V && python3 check.py $pid --tier $tier > $out/check_$pid.txt 2>$out/check_$pid.err; echo "exit=$? (tier $tier, full check; native sweep flagged nothing the restricted runs could decide)" >> $out/check_$pid.txt)
-fi
-tif [ -n "$hits" ]; then
-  (cd $V && VERIF_ONLY="$hits" python3 check.py $pid --tier $tier > $out/check_$pid.txt 2>$out/check_$pid.err; echo "exit=$? (tier $tier, restricted to the harnesses the native sweep flagged: $hits)" >> $out/check_$pid.txt)
-  if ! grep -q "^VIOLATION" $out/check_$pid.txt && [ "$tier" = quick ]; then
-    # the flagged harnesses may belong to the thorough tier only (larger bounds, slow ones)
-    (cd $V && VERIF_ONLY="$hits" python3 check.py $pid --tier thorough > $out/check_${pid}_thorough.txt 2>$out/check_${pid}_thorough.err; echo "exit=$? (tier thorough, restricted to the harnesses the native sweep flagged: $hits)" >> $out/check_${pid}_thorough.txt)
-    if grep -q "^VIOLATION" $out/check_${pid}_thorough.txt; then cp $out/check_${pid}_thorough.txt $out/check_$pid.txt; fi
-  fi
-fi
-if [ -z "$hits" ] || { ! grep -q "^VIOLATION" $out/check_$pid.txt && grep -q "no obligation was generated" $out/check_$pid.txt; }; then
-  (cd $V && python3 check.py $pid --tier $tier > $out/check_$pid.txt 2>$out/check_$pid.err; echo "exit=$? (tier $tier, full check; native sweep flagged nothing the restricted runs could decide)" >> $out/check_$pid.txt)
-fi
-=if [ -n "$hits" ]; then
-  (cd $V && VERIF_ONLY="$hits" python3 check.py $pid --tier $tier > $out/check_$pid.txt 2>$out/check_$pid.err; echo "exit=$? (tier $tier, restricted to the harnesses the native sweep flagged: $hits)" >> $out/check_$pid.txt)
-  if ! grep -q "^VIOLATION" $out/check_$pid.txt && [ "$tier" = quick ]; then
-    # the flagged harnesses may belong to the thorough tier only (larger bounds, slow ones)
-    (cd $V && VERIF_ONLY="$hits" python3 check.py $pid --tier thorough > $out/check_${pid}_thorough.txt 2>$out/check_${pid}_thorough.err; echo "exit=$? (tier thorough, restricted to the harnesses the native sweep flagged: $hits)" >> $out/check_${pid}_thorough.txt)
-    if grep -q "^VIOLATION" $out/check_${pid}_thorough.txt; then cp $out/check_${pid}_thorough.txt $out/check_$pid.txt; fi
-  fi
-fi
-if [ -z "$hits" ] || { ! grep -q "^VIOLATION" $out/check_$pid.txt && grep -q "no obligation was generated" $out/check_$pid.txt; }; then
-  (cd $V && python3 check.py $pid --tier $tier > $out/check_$pid.txt 2>$out/check_$pid.err; echo "exit=$? (tier $tier, full check; native sweep flagged nothing the restricted runs could decide)" >> $out/check_$pid.txt)
-fi
-|if [ -n "$hits" ]; then
-  (cd $V && VERIF_ONLY="$hits" python3 check.py $pid --tier $tier > $out/check_$pid.txt 2>$out/check_$pid.err; echo "exit=$? (tier $tier, restricted to the harnesses the native sweep flagged: $hits)" >> $out/check_$pid.txt)
-  if ! grep -q "^VIOLATION" $out/check_$pid.txt && [ "$tier" = quick ]; then
-    # the flagged harnesses may belong to the thorough tier only (larger bounds, slow ones)
-    (cd $V && VERIF_ONLY="$hits" python3 check.py $pid --tier thorough > $out/check_${pid}_thorough.txt 2>$out/check_${pid}_thorough.err; echo "exit=$? (tier thorough, restricted to the harnesses the native sweep flagged: $hits)" >> $out/check_${pid}_thorough.txt)
-    if grep -q "^VIOLATION" $out/check_${pid}_thorough.txt; then cp $out/check_${pid}_thorough.txt $out/check_$pid.txt; fi
-  fi
-fi
-if [ -z "$hits" ] || { ! grep -q "^VIOLATION" $out/check_$pid.txt && grep -q "no obligation was generated" $out/check_$pid.txt; }; then
-  (cd $V && python3 check.py $pid --tier $tier > $out/check_$pid.txt 2>$out/check_$pid.err; echo "exit=$? (tier $tier, full check; native sweep flagged nothing the restricted runs could decide)" >> $out/check_$pid.txt)
-fi
-Uif [ -n "$hits" ]; then
-  (cd $V && VERIF_ONLY="$hits" python3 check.py $pid --tier $tier > $out/check_$pid.txt 2>$out/check_$pid.err; echo "exit=$? (tier $tier, restricted to the harnesses the native sweep flagged: $hits)" >> $out/check_$pid.txt)
-  if ! grep -q "^VIOLATION" $out/check_$pid.txt && [ "$tier" = quick ]; then
-    # the flagged harnesses may belong to the thorough tier only (larger bounds, slow ones)
-    (cd $V && VERIF_ONLY="$hits" python3 check.py $pid --tier thorough > $out/check_${pid}_thorough.txt 2>$out/check_${pid}_thorough.err; echo "exit=$? (tier thorough, restricted to the harnesses the native sweep flagged: $hits)" >> $out/check_${pid}_thorough.txt)
-    if grep -q "^VIOLATION" $out/check_${pid}_thorough.txt; then cp $out/check_${pid}_thorough.txt $out/check_$pid.txt; fi
-  fi
-fi
-if [ -z "$hits" ] || { ! grep -q "^VIOLATION" $out/check_$pid.txt && grep -q "no obligation was generated" $out/check_$pid.txt; }; then
-  (cd $V && python3 check.py $pid --tier $tier > $out/check_$pid.txt 2>$out/check_$pid.err; echo "exit=$? (tier $tier, full check; native sweep flagged nothing the restricted runs could decide)" >> $out/check_$pid.txt)
-fi
-Nif [ -n "$hits" ]; then
-  (cd $V && VERIF_ONLY="$hits" python3 check.py $pid --tier $tier > $out/check_$pid.txt 2>$out/check_$pid.err; echo "exit=$? (tier $tier, restricted to the harnesses the native sweep flagged: $hits)" >> $out/check_$pid.txt)
-  if ! grep -q "^VIOLATION" $out/check_$pid.txt && [ "$tier" = quick ]; then
-    # the flagged harnesses may belong to the thorough tier only (larger bounds, slow ones)
-    (cd $V && VERIF_ONLY="$hits" python3 check.py $pid --tier thorough > $out/check_${pid}_thorough.txt 2>$out/check_${pid}_thorough.err; echo "exit=$? (tier thorough, restricted to the harnesses the native sweep flagged: $hits)" >> $out/check_${pid}_thorough.txt)
-    if grep -q "^VIOLATION" $out/check_${pid}_thorough.txt; then cp $out/check_${pid}_thorough.txt $out/check_$pid.txt; fi
-  fi
-fi
-if [ -z "$hits" ] || { ! grep -q "^VIOLATION" $out/check_$pid.txt && grep -q "no obligation was generated" $out/check_$pid.txt; }; then
-  (cd $V && python3 check.py $pid --tier $tier > $out/check_$pid.txt 2>$out/check_$pid.err; echo "exit=$? (tier $tier, full check; native sweep flagged nothing the restricted runs could decide)" >> $out/check_$pid.txt)
-fi
-Dif [ -n "$hits" ]; then
-  (cd $V && VERIF_ONLY="$hits" python3 check.py $pid --tier $tier > $out/check_$pid.txt 2>$out/check_$pid.err; echo "exit=$? (tier $tier, restricted to the harnesses the native sweep flagged: $hits)" >> $out/check_$pid.txt)
-  if ! grep -q "^VIOLATION" $out/check_$pid.txt && [ "$tier" = quick ]; then
-    # the flagged harnesses may belong to the thorough tier only (larger bounds, slow ones)
-    (cd $V && VERIF_ONLY="$hits" python3 check.py $pid --tier thorough > $out/check_${pid}_thorough.txt 2>$out/check_${pid}_thorough.err; echo "exit=$? (tier thorough, restricted to the harnesses the native sweep flagged: $hits)" >> $out/check_${pid}_thorough.txt)
-    if grep -q "^VIOLATION" $out/check_${pid}_thorough.txt; then cp $out/check_${pid}_thorough.txt $out/check_$pid.txt; fi
-  fi
-fi
-if [ -z "$hits" ] || { ! grep -q "^VIOLATION" $out/check_$pid.txt && grep -q "no obligation was generated" $out/check_$pid.txt; }; then
-  (cd $V && python3 check.py $pid --tier $tier > $out/check_$pid.txt 2>$out/check_$pid.err; echo "exit=$? (tier $tier, full check; native sweep flagged nothing the restricted runs could decide)" >> $out/check_$pid.txt)
-fi
-Eif [ -n "$hits" ]; then
-  (cd $V && VERIF_ONLY="$hits" python3 check.py $pid --tier $tier > $out/check_$pid.txt 2>$out/check_$pid.err; echo "exit=$? (tier $tier, restricted to the harnesses the native sweep flagged: $hits)" >> $out/check_$pid.txt)
-  if ! grep -q "^VIOLATION" $out/check_$pid.txt && [ "$tier" = quick ]; then
-    # the flagged harnesses may belong to the thorough tier only (larger bounds, slow ones)
-    (cd $V && VERIF_ONLY="$hits" python3 check.py $pid --tier thorough > $out/check_${pid}_thorough.txt 2>$out/check_${pid}_thorough.err; echo "exit=$? (tier thorough, restricted to the harnesses the native sweep flagged: $hits)" >> $out/check_${pid}_thorough.txt)
-    if grep -q "^VIOLATION" $out/check_${pid}_thorough.txt; then cp $out/check_${pid}_thorough.txt $out/check_$pid.txt; fi
-  fi
-fi
-if [ -z "$hits" ] || { ! grep -q "^VIOLATION" $out/check_$pid.txt && grep -q "no obligation was generated" $out/check_$pid.txt; }; then
-  (cd $V && python3 check.py $pid --tier $tier > $out/check_$pid.txt 2>$out/check_$pid.err; echo "exit=$? (tier $tier, full check; native sweep flagged nothing the restricted runs could decide)" >> $out/check_$pid.txt)
-fi
-Cif [ -n "$hits" ]; then
-  (cd $V && VERIF_ONLY="$hits" python3 check.py $pid --tier $tier > $out/check_$pid.txt 2>$out/check_$pid.err; echo "exit=$? (tier $tier, restricted to the harnesses the native sweep flagged: $hits)" >> $out/check_$pid.txt)
-  if ! grep -q "^VIOLATION" $out/check_$pid.txt && [ "$tier" = quick ]; then
-    # the flagged harnesses may belong to the thorough tier only (larger bounds, slow ones)
-    (cd $V && VERIF_ONLY="$hits" python3 check.py $pid --tier thorough > $out/check_${pid}_thorough.txt 2>$out/check_${pid}_thorough.err; echo "exit=$? (tier thorough, restricted to the harnesses the native sweep flagged: $hits)" >> $out/check_${pid}_thorough.txt)
-    if grep -q "^VIOLATION" $out/check_${pid}_thorough.txt; then cp $out/check_${pid}_thorough.txt $out/check_$pid.txt; fi
-  fi
-fi
-if [ -z "$hits" ] || { ! grep -q "^VIOLATION" $out/check_$pid.txt && grep -q "no obligation was generated" $out/check_$pid.txt; }; then
-  (cd $V && python3 check.py $pid --tier $tier > $out/check_$pid.txt 2>$out/check_$pid.err; echo "exit=$? (tier $tier, full check; native sweep flagged nothing the restricted runs could decide)" >> $out/check_$pid.txt)
-fi
-Iif [ -n "$hits" ]; then
-  (cd $V && VERIF_ONLY="$hits" python3 check.py $pid --tier $tier > $out/check_$pid.txt 2>$out/check_$pid.err; echo "exit=$? (tier $tier, restricted to the harnesses the native sweep flagged: $hits)" >> $out/check_$pid.txt)
-  if ! grep -q "^VIOLATION" $out/check_$pid.txt && [ "$tier" = quick ]; then
-    # the flagged harnesses may belong to the thorough tier only (larger bounds, slow ones)
-    (cd $V && VERIF_ONLY="$hits" python3 check.py $pid --tier thorough > $out/check_${pid}_thorough.txt 2>$out/check_${pid}_thorough.err; echo "exit=$? (tier thorough, restricted to the harnesses the native sweep flagged: $hits)" >> $out/check_${pid}_thorough.txt)
-    if grep -q "^VIOLATION" $out/check_${pid}_thorough.txt; then cp $out/check_${pid}_thorough.txt $out/check_$pid.txt; fi
-  fi
-fi
-if [ -z "$hits" ] || { ! grep -q "^VIOLATION" $out/check_$pid.txt && grep -q "no obligation was generated" $out/check_$pid.txt; }; then
-  (cd $V && python3 check.py $pid --tier $tier > $out/check_$pid.txt 2>$out/check_$pid.err; echo "exit=$? (tier $tier, full check; native sweep flagged nothing the restricted runs could decide)" >> $out/check_$pid.txt)
-fi
-Dif [ -n "$hits" ]; then
-  (cd $V && VERIF_ONLY="$hits" python3 check.py $pid --tier $tier > $out/check_$pid.txt 2>$out/check_$pid.err; echo "exit=$? (tier $tier, restricted to the harnesses the native sweep flagged: $hits)" >> $out/check_$pid.txt)
-  if ! grep -q "^VIOLATION" $out/check_$pid.txt && [ "$tier" = quick ]; then
-    # the flagged harnesses may belong to the thorough tier only (larger bounds, slow ones)
-    (cd $V && VERIF_ONLY="$hits" python3 check.py $pid --tier thorough > $out/check_${pid}_thorough.txt 2>$out/check_${pid}_thorough.err; echo "exit=$? (tier thorough, restricted to the harnesses the native sweep flagged: $hits)" >> $out/check_${pid}_thorough.txt)
-    if grep -q "^VIOLATION" $out/check_${pid}_thorough.txt; then cp $out/check_${pid}_thorough.txt $out/check_$pid.txt; fi
-  fi
-fi
-if [ -z "$hits" ] || { ! grep -q "^VIOLATION" $out/check_$pid.txt && grep -q "no obligation was generated" $out/check_$pid.txt; }; then
-  (cd $V && python3 check.py $pid --tier $tier > $out/check_$pid.txt 2>$out/check_$pid.err; echo "exit=$? (tier $tier, full check; native sweep flagged nothing the restricted runs could decide)" >> $out/check_$pid.txt)
-fi
-Eif [ -n "$hits" ]; then
-  (cd $V && VERIF_ONLY="$hits" python3 check.py $pid --tier $tier > $out/check_$pid.txt 2>$out/check_$pid.err; echo "exit=$? (tier $tier, restricted to the harnesses the native sweep flagged: $hits)" >> $out/check_$pid.txt)
-  if ! grep -q "^VIOLATION" $out/check_$pid.txt && [ "$tier" = quick ]; then
-    # the flagged harnesses may belong to the thorough tier only (larger bounds, slow ones)
-    (cd $V && VERIF_ONLY="$hits" python3 check.py $pid --tier thorough > $out/check_${pid}_thorough.txt 2>$out/check_${pid}_thorough.err; echo "exit=$? (tier thorough, restricted to the harnesses the native sweep flagged: $hits)" >> $out/check_${pid}_thorough.txt)
-    if grep -q "^VIOLATION" $out/check_${pid}_thorough.txt; then cp $out/check_${pid}_thorough.txt $out/check_$pid.txt; fi
-  fi
-fi
-if [ -z "$hits" ] || { ! grep -q "^VIOLATION" $out/check_$pid.txt && grep -q "no obligation was generated" $out/check_$pid.txt; }; then
-  (cd $V && python3 check.py $pid --tier $tier > $out/check_$pid.txt 2>$out/check_$pid.err; echo "exit=$? (tier $tier, full check; native sweep flagged nothing the restricted runs could decide)" >> $out/check_$pid.txt)
-fi
-Dif [ -n "$hits" ]; then
-  (cd $V && VERIF_ONLY="$hits" python3 check.py $pid --tier $tier > $out/check_$pid.txt 2>$out/check_$pid.err; echo "exit=$? (tier $tier, restricted to the harnesses the native sweep flagged: $hits)" >> $out/check_$pid.txt)
-  if ! grep -q "^VIOLATION" $out/check_$pid.txt && [ "$tier" = quick ]; then
-    # the flagged harnesses may belong to the thorough tier only (larger bounds, slow ones)
-    (cd $V && VERIF_ONLY="$hits" python3 check.py $pid --tier thorough > $out/check_${pid}_thorough.txt 2>$out/check_${pid}_thorough.err; echo "exit=$? (tier thorough, restricted to the harnesses the native sweep flagged: $hits)" >> $out/check_${pid}_thorough.txt)
-    if grep -q "^VIOLATION" $out/check_${pid}_thorough.txt; then cp $out/check_${pid}_thorough.txt $out/check_$pid.txt; fi
-  fi
-fi
-if [ -z "$hits" ] || { ! grep -q "^VIOLATION" $out/check_$pid.txt && grep -q "no obligation was generated" $out/check_$pid.txt; }; then
-  (cd $V && python3 check.py $pid --tier $tier > $out/check_$pid.txt 2>$out/check_$pid.err; echo "exit=$? (tier $tier, full check; native sweep flagged nothing the restricted runs could decide)" >> $out/check_$pid.txt)
-fi
-"if [ -n "$hits" ]; then
-  (cd $V && VERIF_ONLY="$hits" python3 check.py $pid --tier $tier > $out/check_$pid.txt 2>$out/check_$pid.err; echo "exit=$? (tier $tier, restricted to the harnesses the native sweep flagged: $hits)" >> $out/check_$pid.txt)
-  if ! grep -q "^VIOLATION" $out/check_$pid.txt && [ "$tier" = quick ]; then
-    # the flagged harnesses may belong to the thorough tier only (larger bounds, slow ones)
-    (cd $V && VERIF_ONLY="$hits" python3 check.py $pid --tier thorough > $out/check_${pid}_thorough.txt 2>$out/check_${pid}_thorough.err; echo "exit=$? (tier thorough, restricted to the harnesses the native sweep flagged: $hits)" >> $out/check_${pid}_thorough.txt)
-    if grep -q "^VIOLATION" $out/check_${pid}_thorough.txt; then cp $out/check_${pid}_thorough.txt $out/check_$pid.txt; fi
-  fi
-fi
-if [ -z "$hits" ] || { ! grep -q "^VIOLATION" $out/check_$pid.txt && grep -q "no obligation was generated" $out/check_$pid.txt; }; then
-  (cd $V && python3 check.py $pid --tier $tier > $out/check_$pid.txt 2>$out/check_$pid.err; echo "exit=$? (tier $tier, full check; native sweep flagged nothing the restricted runs could decide)" >> $out/check_$pid.txt)
-fi
- if [ -n "$hits" ]; then
-  (cd $V && VERIF_ONLY="$hits" python3 check.py $pid --tier $tier > $out/check_$pid.txt 2>$out/check_$pid.err; echo "exit=$? (tier $tier, restricted to the harnesses the native sweep flagged: $hits)" >> $out/check_$pid.txt)
-  if ! grep -q "^VIOLATION" $out/check_$pid.txt && [ "$tier" = quick ]; then
-    # the flagged harnesses may belong to the thorough tier only (larger bounds, slow ones)
-    (cd $V && VERIF_ONLY="$hits" python3 check.py $pid --tier thorough > $out/check_${pid}_thorough.txt 2>$out/check_${pid}_thorough.err; echo "exit=$? (tier thorough, restricted to the harnesses the native sweep flagged: $hits)" >> $out/check_${pid}_thorough.txt)
-    if grep -q "^VIOLATION" $out/check_${pid}_thorough.txt; then cp $out/check_${pid}_thorough.txt $out/check_$pid.txt; fi
-  fi
-fi
-if [ -z "$hits" ] || { ! grep -q "^VIOLATION" $out/check_$pid.txt && grep -q "no obligation was generated" $out/check_$pid.txt; }; then
-  (cd $V && python3 check.py $pid --tier $tier > $out/check_$pid.txt 2>$out/check_$pid.err; echo "exit=$? (tier $tier, full check; native sweep flagged nothing the restricted runs could decide)" >> $out/check_$pid.txt)
-fi
-$if [ -n "$hits" ]; then
-  (cd $V && VERIF_ONLY="$hits" python3 check.py $pid --tier $tier > $out/check_$pid.txt 2>$out/check_$pid.err; echo "exit=$? (tier $tier, restricted to the harnesses the native sweep flagged: $hits)" >> $out/check_$pid.txt)
-  if ! grep -q "^VIOLATION" $out/check_$pid.txt && [ "$tier" = quick ]; then
-    # the flagged harnesses may belong to the thorough tier only (larger bounds, slow ones)
-    (cd $V && VERIF_ONLY="$hits" python3 check.py $pid --tier thorough > $out/check_${pid}_thorough.txt 2>$out/check_${pid}_thorough.err; echo "exit=$? (tier thorough, restricted to the harnesses the native sweep flagged: $hits)" >> $out/check_${pid}_thorough.txt)
-    if grep -q "^VIOLATION" $out/check_${pid}_thorough.txt; then cp $out/check_${pid}_thorough.txt $out/check_$pid.txt; fi
-  fi
-fi
-if [ -z "$hits" ] || { ! grep -q "^VIOLATION" $out/check_$pid.txt && grep -q "no obligation was generated" $out/check_$pid.txt; }; then
-  (cd $V && python3 check.py $pid --tier $tier > $out/check_$pid.txt 2>$out/check_$pid.err; echo "exit=$? (tier $tier, full check; native sweep flagged nothing the restricted runs could decide)" >> $out/check_$pid.txt)
-fi
-oif [ -n "$hits" ]; then
-  (cd $V && VERIF_ONLY="$hits" python3 check.py $pid --tier $tier > $out/check_$pid.txt 2>$out/check_$pid.err; echo "exit=$? (tier $tier, restricted to the harnesses the native sweep flagged: $hits)" >> $out/check_$pid.txt)
-  if ! grep -q "^VIOLATION" $out/check_$pid.txt && [ "$tier" = quick ]; then
-    # the flagged harnesses may belong to the thorough tier only (larger bounds, slow ones)
-    (cd $V && VERIF_ONLY="$hits" python3 check.py $pid --tier thorough > $out/check_${pid}_thorough.txt 2>$out/check_${pid}_thorough.err; echo "exit=$? (tier thorough, restricted to the harnesses the native sweep flagged: $hits)" >> $out/check_${pid}_thorough.txt)
-    if grep -q "^VIOLATION" $out/check_${pid}_thorough.txt; then cp $out/check_${pid}_thorough.txt $out/check_$pid.txt; fi
-  fi
-fi
-if [ -z "$hits" ] || { ! grep -q "^VIOLATION" $out/check_$pid.txt && grep -q "no obligation was generated" $out/check_$pid.txt; }; then
-  (cd $V && python3 check.py $pid --tier $tier > $out/check_$pid.txt 2>$out/check_$pid.err; echo "exit=$? (tier $tier, full check; native sweep flagged nothing the restricted runs could decide)" >> $out/check_$pid.txt)
-fi
-uif [ -n "$hits" ]; then
-  (cd $V && VERIF_ONLY="$hits" python3 check.py $pid --tier $tier > $out/check_$pid.txt 2>$out/check_$pid.err; echo "exit=$? (tier $tier, restricted to the harnesses the native sweep flagged: $hits)" >> $out/check_$pid.txt)
-  if ! grep -q "^VIOLATION" $out/check_$pid.txt && [ "$tier" = quick ]; then
-    # the flagged harnesses may belong to the thorough tier only (larger bounds, slow ones)
-    (cd $V && VERIF_ONLY="$hits" python3 check.py $pid --tier thorough > $out/check_${pid}_thorough.txt 2>$out/check_${pid}_thorough.err; echo "exit=$? (tier thorough, restricted to the harnesses the native sweep flagged: $hits)" >> $out/check_${pid}_thorough.txt)
-    if grep -q "^VIOLATION" $out/check_${pid}_thorough.txt; then cp $out/check_${pid}_thorough.txt $out/check_$pid.txt; fi
-  fi
-fi
-if [ -z "$hits" ] || { ! grep -q "^VIOLATION" $out/check_$pid.txt && grep -q "no obligation was generated" $out/check_$pid.txt; }; then
-  (cd $V && python3 check.py $pid --tier $tier > $out/check_$pid.txt 2>$out/check_$pid.err; echo "exit=$? (tier $tier, full check; native sweep flagged nothing the restricted runs could decide)" >> $out/check_$pid.txt)
-fi
-tif [ -n "$hits" ]; then
-  (cd $V && VERIF_ONLY="$hits" python3 check.py $pid --tier $tier > $out/check_$pid.txt 2>$out/check_$pid.err; echo "exit=$? (tier $tier, restricted to the harnesses the native sweep flagged: $hits)" >> $out/check_$pid.txt)
-  if ! grep -q "^VIOLATION" $out/check_$pid.txt && [ "$tier" = quick ]; then
-    # the flagged harnesses may belong to the thorough tier only (larger bounds, slow ones)
-    (cd $V && VERIF_ONLY="$hits" python3 check.py $pid --tier thorough > $out/check_${pid}_thorough.txt 2>$out/check_${pid}_thorough.err; echo "exit=$? (tier thorough, restricted to the harnesses the native sweep flagged: $hits)" >> $out/check_${pid}_thorough.txt)
-    if grep -q "^VIOLATION" $out/check_${pid}_thorough.txt; then cp $out/check_${pid}_thorough.txt $out/check_$pid.txt; fi
-  fi
-fi
-if [ -z "$hits" ] || { ! grep -q "^VIOLATION" $out/check_$pid.txt && grep -q "no obligation was generated" $out/check_$pid.txt; }; then
-  (cd $V && python3 check.py $pid --tier $tier > $out/check_$pid.txt 2>$out/check_$pid.err; echo "exit=$? (tier $tier, full check; native sweep flagged nothing the restricted runs could decide)" >> $out/check_$pid.txt)
-fi
-/if [ -n "$hits" ]; then
-  (cd $V && VERIF_ONLY="$hits" python3 check.py $pid --tier $tier > $out/check_$pid.txt 2>$out/check_$pid.err; echo "exit=$? (tier $tier, restricted to the harnesses the native sweep flagged: $hits)" >> $out/check_$pid.txt)
-  if ! grep -q "^VIOLATION" $out/check_$pid.txt && [ "$tier" = quick ]; then
-    # the flagged harnesses may belong to the thorough tier only (larger bounds, slow ones)
-    (cd $V && VERIF_ONLY="$hits" python3 check.py $pid --tier thorough > $out/check_${pid}_thorough.txt 2>$out/check_${pid}_thorough.err; echo "exit=$? (tier thorough, restricted to the harnesses the native sweep flagged: $hits)" >> $out/check_${pid}_thorough.txt)
-    if grep -q "^VIOLATION" $out/check_${pid}_thorough.txt; then cp $out/check_${pid}_thorough.txt $out/check_$pid.txt; fi
-  fi
-fi
-if [ -z "$hits" ] || { ! grep -q "^VIOLATION" $out/check_$pid.txt && grep -q "no obligation was generated" $out/check_$pid.txt; }; then
-  (cd $V && python3 check.py $pid --tier $tier > $out/check_$pid.txt 2>$out/check_$pid.err; echo "exit=$? (tier $tier, full check; native sweep flagged nothing the restricted runs could decide)" >> $out/check_$pid.txt)
-fi
-cif [ -n "$hits" ]; then
-  (cd $V && VERIF_ONLY="$hits" python3 check.py $pid --tier $tier > $out/check_$pid.txt 2>$out/check_$pid.err; echo "exit=$? (tier $tier, restricted to the harnesses the native sweep flagged: $hits)" >> $out/check_$pid.txt)
-  if ! grep -q "^VIOLATION" $out/check_$pid.txt && [ "$tier" = quick ]; then
-    # the flagged harnesses may belong to the thorough tier only (larger bounds, slow ones)
-    (cd $V && VERIF_ONLY="$hits" python3 check.py $pid --tier thorough > $out/check_${pid}_thorough.txt 2>$out/check_${pid}_thorough.err; echo "exit=$? (tier thorough, restricted to the harnesses the native sweep flagged: $hits)" >> $out/check_${pid}_thorough.txt)
-    if grep -q "^VIOLATION" $out/check_${pid}_thorough.txt; then cp $out/check_${pid}_thorough.txt $out/check_$pid.txt; fi
-  fi
-fi
-if [ -z "$hits" ] || { ! grep -q "^VIOLATION" $out/check_$pid.txt && grep -q "no obligation was generated" $out/check_$pid.txt; }; then
-  (cd $V && python3 check.py $pid --tier $tier > $out/check_$pid.txt 2>$out/check_$pid.err; echo "exit=$? (tier $tier, full check; native sweep flagged nothing the restricted runs could decide)" >> $out/check_$pid.txt)
-fi
-hif [ -n "$hits" ]; then
-  (cd $V && VERIF_ONLY="$hits" python3 check.py $pid --tier $tier > $out/check_$pid.txt 2>$out/check_$pid.err; echo "exit=$? (tier $tier, restricted to the harnesses the native sweep flagged: $hits)" >> $out/check_$pid.txt)
-  if ! grep -q "^VIOLATION" $out/check_$pid.txt && [ "$tier" = quick ]; then
-    # the flagged harnesses may belong to the thorough tier only (larger bounds, slow ones)
-    (cd $V && VERIF_ONLY="$hits" python3 check.py $pid --tier thorough > $out/check_${pid}_thorough.txt 2>$out/check_${pid}_thorough.err; echo "exit=$? (tier thorough, restricted to the harnesses the native sweep flagged: $hits)" >> $out/check_${pid}_thorough.txt)
-    if grep -q "^VIOLATION" $out/check_${pid}_thorough.txt; then cp $out/check_${pid}_thorough.txt $out/check_$pid.txt; fi
-  fi
-fi
-if [ -z "$hits" ] || { ! grep -q "^VIOLATION" $out/check_$pid.txt && grep -q "no obligation was generated" $out/check_$pid.txt; }; then
-  (cd $V && python3 check.py $pid --tier $tier > $out/check_$pid.txt 2>$out/check_$pid.err; echo "exit=$? (tier $tier, full check; native sweep flagged nothing the restricted runs could decide)" >> $out/check_$pid.txt)
-fi
-eif [ -n "$hits" ]; then
-  (cd $V && VERIF_ONLY="$hits" python3 check.py $pid --tier $tier > $out/check_$pid.txt 2>$out/check_$pid.err; echo "exit=$? (tier $tier, restricted to the harnesses the native sweep flagged: $hits)" >> $out/check_$pid.txt)
-  if ! grep -q "^VIOLATION" $out/check_$pid.txt && [ "$tier" = quick ]; then
-    # the flagged harnesses may belong to the thorough tier only (larger bounds, slow ones)
-    (cd $V && VERIF_ONLY="$hits" python3 check.py $pid --tier thorough > $out/check_${pid}_thorough.txt 2>$out/check_${pid}_thorough.err; echo "exit=$? (tier thorough, restricted to the harnesses the native sweep flagged: $hits)" >> $out/check_${pid}_thorough.txt)
-    if grep -q "^VIOLATION" $out/check_${pid}_thorough.txt; then cp $out/check_${pid}_thorough.txt $out/check_$pid.txt; fi
-  fi
-fi
-if [ -z "$hits" ] || { ! grep -q "^VIOLATION" $out/check_$pid.txt && grep -q "no obligation was generated" $out/check_$pid.txt; }; then
-  (cd $V && python3 check.py $pid --tier $tier > $out/check_$pid.txt 2>$out/check_$pid.err; echo "exit=$? (tier $tier, full check; native sweep flagged nothing the restricted runs could decide)" >> $out/check_$pid.txt)
-fi
-cif [ -n "$hits" ]; then
-  (cd $V && VERIF_ONLY="$hits" python3 check.py $pid --tier $tier > $out/check_$pid.txt 2>$out/check_$pid.err; echo "exit=$? (tier $tier, restricted to the harnesses the native sweep flagged: $hits)" >> $out/check_$pid.txt)
-  if ! grep -q "^VIOLATION" $out/check_$pid.txt && [ "$tier" = quick ]; then
-    # the flagged harnesses may belong to the thorough tier only (larger bounds, slow ones)
-    (cd $V && VERIF_ONLY="$hits" python3 check.py $pid --tier thorough > $out/check_${pid}_thorough.txt 2>$out/check_${pid}_thorough.err; echo "exit=$? (tier thorough, restricted to the harnesses the native sweep flagged: $hits)" >> $out/check_${pid}_thorough.txt)
-    if grep -q "^VIOLATION" $out/check_${pid}_thorough.txt; then cp $out/check_${pid}_thorough.txt $out/check_$pid.txt; fi
-  fi
-fi
-if [ -z "$hits" ] || { ! grep -q "^VIOLATION" $out/check_$pid.txt && grep -q "no obligation was generated" $out/check_$pid.txt; }; then
-  (cd $V && python3 check.py $pid --tier $tier > $out/check_$pid.txt 2>$out/check_$pid.err; echo "exit=$? (tier $tier, full check; native sweep flagged nothing the restricted runs could decide)" >> $out/check_$pid.txt)
-fi
-kif [ -n "$hits" ]; then
-  (cd $V && VERIF_ONLY="$hits" python3 check.py $pid --tier $tier > $out/check_$pid.txt 2>$out/check_$pid.err; echo "exit=$? (tier $tier, restricted to the harnesses the native sweep flagged: $hits)" >> $out/check_$pid.txt)
-  if ! grep -q "^VIOLATION" $out/check_$pid.txt && [ "$tier" = quick ]; then
-    # the flagged harnesses may belong to the thorough tier only (larger bounds, slow ones)
-    (cd $V && VERIF_ONLY="$hits" python3 check.py $pid --tier thorough > $out/check_${pid}_thorough.txt 2>$out/check_${pid}_thorough.err; echo "exit=$? (tier thorough, restricted to the harnesses the native sweep flagged: $hits)" >> $out/check_${pid}_thorough.txt)
-    if grep -q "^VIOLATION" $out/check_${pid}_thorough.txt; then cp $out/check_${pid}_thorough.txt $out/check_$pid.txt; fi
-  fi
-fi
-if [ -z "$hits" ] || { ! grep -q "^VIOLATION" $out/check_$pid.txt && grep -q "no obligation was generated" $out/check_$pid.txt; }; then
-  (cd $V && python3 check.py $pid --tier $tier > $out/check_$pid.txt 2>$out/check_$pid.err; echo "exit=$? (tier $tier, full check; native sweep flagged nothing the restricted runs could decide)" >> $out/check_$pid.txt)
-fi
-_if [ -n "$hits" ]; then
-  (cd $V && VERIF_ONLY="$hits" python3 check.py $pid --tier $tier > $out/check_$pid.txt 2>$out/check_$pid.err; echo "exit=$? (tier $tier, restricted to the harnesses the native sweep flagged: $hits)" >> $out/check_$pid.txt)
-  if ! grep -q "^VIOLATION" $out/check_$pid.txt && [ "$tier" = quick ]; then
-    # the flagged harnesses may belong to the thorough tier only (larger bounds, slow ones)
-    (cd $V && VERIF_ONLY="$hits" python3 check.py $pid --tier thorough > $out/check_${pid}_thorough.txt 2>$out/check_${pid}_thorough.err; echo "exit=$? (tier thorough, restricted to the harnesses the native sweep flagged: $hits)" >> $out/check_${pid}_thorough.txt)
-    if grep -q "^VIOLATION" $out/check_${pid}_thorough.txt; then cp $out/check_${pid}_thorough.txt $out/check_$pid.txt; fi
-  fi
-fi
-if [ -z "$hits" ] || { ! grep -q "^VIOLATION" $out/check_$pid.txt && grep -q "no obligation was generated" $out/check_$pid.txt; }; then
-  (cd $V && python3 check.py $pid --tier $tier > $out/check_$pid.txt 2>$out/check_$pid.err; echo "exit=$? (tier $tier, full check; native sweep flagged nothing the restricted runs could decide)" >> $out/check_$pid.txt)
-fi
-$if [ -n "$hits" ]; then
-  (cd $V && VERIF_ONLY="$hits" python3 check.py $pid --tier $tier > $out/check_$pid.txt 2>$out/check_$pid.err; echo "exit=$? (tier $tier, restricted to the harnesses the native sweep flagged: $hits)" >> $out/check_$pid.txt)
-  if ! grep -q "^VIOLATION" $out/check_$pid.txt && [ "$tier" = quick ]; then
-    # the flagged harnesses may belong to the thorough tier only (larger bounds, slow ones)
-    (cd $V && VERIF_ONLY="$hits" python3 check.py $pid --tier thorough > $out/check_${pid}_thorough.txt 2>$out/check_${pid}_thorough.err; echo "exit=$? (tier thorough, restricted to the harnesses the native sweep flagged: $hits)" >> $out/check_${pid}_thorough.txt)
-    if grep -q "^VIOLATION" $out/check_${pid}_thorough.txt; then cp $out/check_${pid}_thorough.txt $out/check_$pid.txt; fi
-  fi
-fi
-if [ -z "$hits" ] || { ! grep -q "^VIOLATION" $out/check_$pid.txt && grep -q "no obligation was generated" $out/check_$pid.txt; }; then
-  (cd $V && python3 check.py $pid --tier $tier > $out/check_$pid.txt 2>$out/check_$pid.err; echo "exit=$? (tier $tier, full check; native sweep flagged nothing the restricted runs could decide)" >> $out/check_$pid.txt)
-fi
-pif [ -n "$hits" ]; then
-  (cd $V && VERIF_ONLY="$hits" python3 check.py $pid --tier $tier > $out/check_$pid.txt 2>$out/check_$pid.err; echo "exit=$? (tier $tier, restricted to the harnesses the native sweep flagged: $hits)" >> $out/check_$pid.txt)
-  if ! grep -q "^VIOLATION" $out/check_$pid.txt && [ "$tier" = quick ]; then
-    # the flagged harnesses may belong to the thorough tier only (larger bounds, slow ones)
-    (cd $V && VERIF_ONLY="$hits" python3 check.py $pid --tier thorough > $out/check_${pid}_thorough.txt 2>$out/check_${pid}_thorough.err; echo "exit=$? (tier thorough, restricted to the harnesses the native sweep flagged: $hits)" >> $out/check_${pid}_thorough.txt)
-    if grep -q "^VIOLATION" $out/check_${pid}_thorough.txt; then cp $out/check_${pid}_thorough.txt $out/check_$pid.txt; fi
-  fi
-fi
-if [ -z "$hits" ] || { ! grep -q "^VIOLATION" $out/check_$pid.txt && grep -q "no obligation was generated" $out/check_$pid.txt; }; then
-  (cd $V && python3 check.py $pid --tier $tier > $out/check_$pid.txt 2>$out/check_$pid.err; echo "exit=$? (tier $tier, full check; native sweep flagged nothing the restricted runs could decide)" >> $out/check_$pid.txt)
-fi
-iif [ -n "$hits" ]; then
-  (cd $V && VERIF_ONLY="$hits" python3 check.py $pid --tier $tier > $out/check_$pid.txt 2>$out/check_$pid.err; echo "exit=$? (tier $tier, restricted to the harnesses the native sweep flagged: $hits)" >> $out/check_$pid.txt)
-  if ! grep -q "^VIOLATION" $out/check_$pid.txt && [ "$tier" = quick ]; then
-    # the flagged harnesses may belong to the thorough tier only (larger bounds, slow ones)
-    (cd $V && VERIF_ONLY="$hits" python3 check.py $pid --tier thorough > $out/check_${pid}_thorough.txt 2>$out/check_${pid}_thorough.err; echo "exit=$? (tier thorough, restricted to the harnesses the native sweep flagged: $hits)" >> $out/check_${pid}_thorough.txt)
-    if grep -q "^VIOLATION" $out/check_${pid}_thorough.txt; then cp $out/check_${pid}_thorough.txt $out/check_$pid.txt; fi
-  fi
-fi
-if [ -z "$hits" ] || { ! grep -q "^VIOLATION" $out/check_$pid.txt && grep -q "no obligation was generated" $out/check_$pid.txt; }; then
-  (cd $V && python3 check.py $pid --tier $tier > $out/check_$pid.txt 2>$out/check_$pid.err; echo "exit=$? (tier $tier, full check; native sweep flagged nothing the restricted runs could decide)" >> $out/check_$pid.txt)
-fi
-dif [ -n "$hits" ]; then
-  (cd $V && VERIF_ONLY="$hits" python3 check.py $pid --tier $tier > $out/check_$pid.txt 2>$out/check_$pid.err; echo "exit=$? (tier $tier, restricted to the harnesses the native sweep flagged: $hits)" >> $out/check_$pid.txt)
-  if ! grep -q "^VIOLATION" $out/check_$pid.txt && [ "$tier" = quick ]; then
-    # the flagged harnesses may belong to the thorough tier only (larger bounds, slow ones)
-    (cd $V && VERIF_ONLY="$hits" python3 check.py $pid --tier thorough > $out/check_${pid}_thorough.txt 2>$out/check_${pid}_thorough.err; echo "exit=$? (tier thorough, restricted to the harnesses the native sweep flagged: $hits)" >> $out/check_${pid}_thorough.txt)
-    if grep -q "^VIOLATION" $out/check_${pid}_thorough.txt; then cp $out/check_${pid}_thorough.txt $out/check_$pid.txt; fi
-  fi
-fi
-if [ -z "$hits" ] || { ! grep -q "^VIOLATION" $out/check_$pid.txt && grep -q "no obligation was generated" $out/check_$pid.txt; }; then
-  (cd $V && python3 check.py $pid --tier $tier > $out/check_$pid.txt 2>$out/check_$pid.err; echo "exit=$? (tier $tier, full check; native sweep flagged nothing the restricted runs could decide)" >> $out/check_$pid.txt)
-fi
-.if [ -n "$hits" ]; then
-  (cd $V && VERIF_ONLY="$hits" python3 check.py $pid --tier $tier > $out/check_$pid.txt 2>$out/check_$pid.err; echo "exit=$? (tier $tier, restricted to the harnesses the native sweep flagged: $hits)" >> $out/check_$pid.txt)
-  if ! grep -q "^VIOLATION" $out/check_$pid.txt && [ "$tier" = quick ]; then
-    # the flagged harnesses may belong to the thorough tier only (larger bounds, slow ones)
-    (cd $V && VERIF_ONLY="$hits" python3 check.py $pid --tier thorough > $out/check_${pid}_thorough.txt 2>$out/check_${pid}_thorough.err; echo "exit=$? (tier thorough, restricted to the harnesses the native sweep flagged: $hits)" >> $out/check_${pid}_thorough.txt)
-    if grep -q "^VIOLATION" $out/check_${pid}_thorough.txt; then cp $out/check_${pid}_thorough.txt $out/check_$pid.txt; fi
-  fi
-fi
-if [ -z "$hits" ] || { ! grep -q "^VIOLATION" $out/check_$pid.txt && grep -q "no obligation was generated" $out/check_$pid.txt; }; then
-  (cd $V && python3 check.py $pid --tier $tier > $out/check_$pid.txt 2>$out/check_$pid.err; echo "exit=$? (tier $tier, full check; native sweep flagged nothing the restricted runs could decide)" >> $out/check_$pid.txt)
-fi
-tif [ -n "$hits" ]; then
-  (cd $V && VERIF_ONLY="$hits" python3 check.py $pid --tier $tier > $out/check_$pid.txt 2>$out/check_$pid.err; echo "exit=$? (tier $tier, restricted to the harnesses the native sweep flagged: $hits)" >> $out/check_$pid.txt)
-  if ! grep -q "^VIOLATION" $out/check_$pid.txt && [ "$tier" = quick ]; then
-    # the flagged harnesses may belong to the thorough tier only (larger bounds, slow ones)
-    (cd $V && VERIF_ONLY="$hits" python3 check.py $pid --tier thorough > $out/check_${pid}_thorough.txt 2>$out/check_${pid}_thorough.err; echo "exit=$? (tier thorough, restricted to the harnesses the native sweep flagged: $hits)" >> $out/check_${pid}_thorough.txt)
-    if grep -q "^VIOLATION" $out/check_${pid}_thorough.txt; then cp $out/check_${pid}_thorough.txt $out/check_$pid.txt; fi
-  fi
-fi
-if [ -z "$hits" ] || { ! grep -q "^VIOLATION" $out/check_$pid.txt && grep -q "no obligation was generated" $out/check_$pid.txt; }; then
-  (cd $V && python3 check.py $pid --tier $tier > $out/check_$pid.txt 2>$out/check_$pid.err; echo "exit=$? (tier $tier, full check; native sweep flagged nothing the restricted runs could decide)" >> $out/check_$pid.txt)
-fi
-xif [ -n "$hits" ]; then
-  (cd $V && VERIF_ONLY="$hits" python3 check.py $pid --tier $tier > $out/check_$pid.txt 2>$out/check_$pid.err; echo "exit=$? (tier $tier, restricted to the harnesses the native sweep flagged: $hits)" >> $out/check_$pid.txt)
-  if ! grep -q "^VIOLATION" $out/check_$pid.txt && [ "$tier" = quick ]; then
-    # the flagged harnesses may belong to the thorough tier only (larger bounds, slow ones)
-    (cd $V && VERIF_ONLY="$hits" python3 check.py $pid --tier thorough > $out/check_${pid}_thorough.txt 2>$out/check_${pid}_thorough.err; echo "exit=$? (tier thorough, restricted to the harnesses the native sweep flagged: $hits)" >> $out/check_${pid}_thorough.txt)
-    if grep -q "^VIOLATION" $out/check_${pid}_thorough.txt; then cp $out/check_${pid}_thorough.txt $out/check_$pid.txt; fi
-  fi
-fi
-if [ -z "$hits" ] || { ! grep -q "^VIOLATION" $out/check_$pid.txt && grep -q "no obligation was generated" $out/check_$pid.txt; }; then
-  (cd $V && python3 check.py $pid --tier $tier > $out/check_$pid.txt 2>$out/check_$pid.err; echo "exit=$? (tier $tier, full check; native sweep flagged nothing the restricted runs could decide)" >> $out/check_$pid.txt)
-fi
-tif [ -n "$hits" ]; then
-  (cd $V && VERIF_ONLY="$hits" python3 check.py $pid --tier $tier > $out/check_$pid.txt 2>$out/check_$pid.err; echo "exit=$? (tier $tier, restricted to the harnesses the native sweep flagged: $hits)" >> $out/check_$pid.txt)
-  if ! grep -q "^VIOLATION" $out/check_$pid.txt && [ "$tier" = quick ]; then
-    # the flagged harnesses may belong to the thorough tier only (larger bounds, slow ones)
-    (cd $V && VERIF_ONLY="$hits" python3 check.py $pid --tier thorough > $out/check_${pid}_thorough.txt 2>$out/check_${pid}_thorough.err; echo "exit=$? (tier thorough, restricted to the harnesses the native sweep flagged: $hits)" >> $out/check_${pid}_thorough.txt)
-    if grep -q "^VIOLATION" $out/check_${pid}_thorough.txt; then cp $out/check_${pid}_thorough.txt $out/check_$pid.txt; fi
-  fi
-fi
-if [ -z "$hits" ] || { ! grep -q "^VIOLATION" $out/check_$pid.txt && grep -q "no obligation was generated" $out/check_$pid.txt; }; then
-  (cd $V && python3 check.py $pid --tier $tier > $out/check_$pid.txt 2>$out/check_$pid.err; echo "exit=$? (tier $tier, full check; native sweep flagged nothing the restricted runs could decide)" >> $out/check_$pid.txt)
-fi
- if [ -n "$hits" ]; then
-  (cd $V && VERIF_ONLY="$hits" python3 check.py $pid --tier $tier > $out/check_$pid.txt 2>$out/check_$pid.err; echo "exit=$? (tier $tier, restricted to the harnesses the native sweep flagged: $hits)" >> $out/check_$pid.txt)
-  if ! grep -q "^VIOLATION" $out/check_$pid.txt && [ "$tier" = quick ]; then
-    # the flagged harnesses may belong to the thorough tier only (larger bounds, slow ones)
-    (cd $V && VERIF_ONLY="$hits" python3 check.py $pid --tier thorough > $out/check_${pid}_thorough.txt 2>$out/check_${pid}_thorough.err; echo "exit=$? (tier thorough, restricted to the harnesses the native sweep flagged: $hits)" >> $out/check_${pid}_thorough.txt)
-    if grep -q "^VIOLATION" $out/check_${pid}_thorough.txt; then cp $out/check_${pid}_thorough.txt $out/check_$pid.txt; fi
-  fi
-fi
-if [ -z "$hits" ] || { ! grep -q "^VIOLATION" $out/check_$pid.txt && grep -q "no obligation was generated" $out/check_$pid.txt; }; then
-  (cd $V && python3 check.py $pid --tier $tier > $out/check_$pid.txt 2>$out/check_$pid.err; echo "exit=$? (tier $tier, full check; native sweep flagged nothing the restricted runs could decide)" >> $out/check_$pid.txt)
-fi
-|if [ -n "$hits" ]; then
-  (cd $V && VERIF_ONLY="$hits" python3 check.py $pid --tier $tier > $out/check_$pid.txt 2>$out/check_$pid.err; echo "exit=$? (tier $tier, restricted to the harnesses the native sweep flagged: $hits)" >> $out/check_$pid.txt)
-  if ! grep -q "^VIOLATION" $out/check_$pid.txt && [ "$tier" = quick ]; then
-    # the flagged harnesses may belong to the thorough tier only (larger bounds, slow ones)
-    (cd $V && VERIF_ONLY="$hits" python3 check.py $pid --tier thorough > $out/check_${pid}_thorough.txt 2>$out/check_${pid}_thorough.err; echo "exit=$? (tier thorough, restricted to the harnesses the native sweep flagged: $hits)" >> $out/check_${pid}_thorough.txt)
-    if grep -q "^VIOLATION" $out/check_${pid}_thorough.txt; then cp $out/check_${pid}_thorough.txt $out/check_$pid.txt; fi
-  fi
-fi
-if [ -z "$hits" ] || { ! grep -q "^VIOLATION" $out/check_$pid.txt && grep -q "no obligation was generated" $out/check_$pid.txt; }; then
-  (cd $V && python3 check.py $pid --tier $tier > $out/check_$pid.txt 2>$out/check_$pid.err; echo "exit=$? (tier $tier, full check; native sweep flagged nothing the restricted runs could decide)" >> $out/check_$pid.txt)
-fi
- if [ -n "$hits" ]; then
-  (cd $V && VERIF_ONLY="$hits" python3 check.py $pid --tier $tier > $out/check_$pid.txt 2>$out/check_$pid.err; echo "exit=$? (tier $tier, restricted to the harnesses the native sweep flagged: $hits)" >> $out/check_$pid.txt)
-  if ! grep -q "^VIOLATION" $out/check_$pid.txt && [ "$tier" = quick ]; then
-    # the flagged harnesses may belong to the thorough tier only (larger bounds, slow ones)
-    (cd $V && VERIF_ONLY="$hits" python3 check.py $pid --tier thorough > $out/check_${pid}_thorough.txt 2>$out/check_${pid}_thorough.err; echo "exit=$? (tier thorough, restricted to the harnesses the native sweep flagged: $hits)" >> $out/check_${pid}_thorough.txt)
-    if grep -q "^VIOLATION" $out/check_${pid}_thorough.txt; then cp $out/check_${pid}_thorough.txt $out/check_$pid.txt; fi
-  fi
-fi
-if [ -z "$hits" ] || { ! grep -q "^VIOLATION" $out/check_$pid.txt && grep -q "no obligation was generated" $out/check_$pid.txt; }; then
-  (cd $V && python3 check.py $pid --tier $tier > $out/check_$pid.txt 2>$out/check_$pid.err; echo "exit=$? (tier $tier, full check; native sweep flagged nothing the restricted runs could decide)" >> $out/check_$pid.txt)
-fi
-hif [ -n "$hits" ]; then
-  (cd $V && VERIF_ONLY="$hits" python3 check.py $pid --tier $tier > $out/check_$pid.txt 2>$out/check_$pid.err; echo "exit=$? (tier $tier, restricted to the harnesses the native sweep flagged: $hits)" >> $out/check_$pid.txt)
-  if ! grep -q "^VIOLATION" $out/check_$pid.txt && [ "$tier" = quick ]; then
-    # the flagged harnesses may belong to the thorough tier only (larger bounds, slow ones)
-    (cd $V && VERIF_ONLY="$hits" python3 check.py $pid --tier thorough > $out/check_${pid}_thorough.txt 2>$out/check_${pid}_thorough.err; echo "exit=$? (tier thorough, restricted to the harnesses the native sweep flagged: $hits)" >> $out/check_${pid}_thorough.txt)
-    if grep -q "^VIOLATION" $out/check_${pid}_thorough.txt; then cp $out/check_${pid}_thorough.txt $out/check_$pid.txt; fi
-  fi
-fi
-if [ -z "$hits" ] || { ! grep -q "^VIOLATION" $out/check_$pid.txt && grep -q "no obligation was generated" $out/check_$pid.txt; }; then
-  (cd $V && python3 check.py $pid --tier $tier > $out/check_$pid.txt 2>$out/check_$pid.err; echo "exit=$? (tier $tier, full check; native sweep flagged nothing the restricted runs could decide)" >> $out/check_$pid.txt)
-fi
-eif [ -n "$hits" ]; then
-  (cd $V && VERIF_ONLY="$hits" python3 check.py $pid --tier $tier > $out/check_$pid.txt 2>$out/check_$pid.err; echo "exit=$? (tier $tier, restricted to the harnesses the native sweep flagged: $hits)" >> $out/check_$pid.txt)
-  if ! grep -q "^VIOLATION" $out/check_$pid.txt && [ "$tier" = quick ]; then
-    # the flagged harnesses may belong to the thorough tier only (larger bounds, slow ones)
-    (cd $V && VERIF_ONLY="$hits" python3 check.py $pid --tier thorough > $out/check_${pid}_thorough.txt 2>$out/check_${pid}_thorough.err; echo "exit=$? (tier thorough, restricted to the harnesses the native sweep flagged: $hits)" >> $out/check_${pid}_thorough.txt)
-    if grep -q "^VIOLATION" $out/check_${pid}_thorough.txt; then cp $out/check_${pid}_thorough.txt $out/check_$pid.txt; fi
-  fi
-fi
-if [ -z "$hits" ] || { ! grep -q "^VIOLATION" $out/check_$pid.txt && grep -q "no obligation was generated" $out/check_$pid.txt; }; then
-  (cd $V && python3 check.py $pid --tier $tier > $out/check_$pid.txt 2>$out/check_$pid.err; echo "exit=$? (tier $tier, full check; native sweep flagged nothing the restricted runs could decide)" >> $out/check_$pid.txt)
-fi
-aif [ -n "$hits" ]; then
-  (cd $V && VERIF_ONLY="$hits" python3 check.py $pid --tier $tier > $out/check_$pid.txt 2>$out/check_$pid.err; echo "exit=$? (tier $tier, restricted to the harnesses the native sweep flagged: $hits)" >> $out/check_$pid.txt)
-  if ! grep -q "^VIOLATION" $out/check_$pid.txt && [ "$tier" = quick ]; then
-    # the flagged harnesses may belong to the thorough tier only (larger bounds, slow ones)
-    (cd $V && VERIF_ONLY="$hits" python3 check.py $pid --tier thorough > $out/check_${pid}_thorough.txt 2>$out/check_${pid}_thorough.err; echo "exit=$? (tier thorough, restricted to the harnesses the native sweep flagged: $hits)" >> $out/check_${pid}_thorough.txt)
-    if grep -q "^VIOLATION" $out/check_${pid}_thorough.txt; then cp $out/check_${pid}_thorough.txt $out/check_$pid.txt; fi
-  fi
-fi
-if [ -z "$hits" ] || { ! grep -q "^VIOLATION" $out/check_$pid.txt && grep -q "no obligation was generated" $out/check_$pid.txt; }; then
-  (cd $V && python3 check.py $pid --tier $tier > $out/check_$pid.txt 2>$out/check_$pid.err; echo "exit=$? (tier $tier, full check; native sweep flagged nothing the restricted runs could decide)" >> $out/check_$pid.txt)
-fi
-dif [ -n "$hits" ]; then
-  (cd $V && VERIF_ONLY="$hits" python3 check.py $pid --tier $tier > $out/check_$pid.txt 2>$out/check_$pid.err; echo "exit=$? (tier $tier, restricted to the harnesses the native sweep flagged: $hits)" >> $out/check_$pid.txt)
-  if ! grep -q "^VIOLATION" $out/check_$pid.txt && [ "$tier" = quick ]; then
-    # the flagged harnesses may belong to the thorough tier only (larger bounds, slow ones)
-    (cd $V && VERIF_ONLY="$hits" python3 check.py $pid --tier thorough > $out/check_${pid}_thorough.txt 2>$out/check_${pid}_thorough.err; echo "exit=$? (tier thorough, restricted to the harnesses the native sweep flagged: $hits)" >> $out/check_${pid}_thorough.txt)
-    if grep -q "^VIOLATION" $out/check_${pid}_thorough.txt; then cp $out/check_${pid}_thorough.txt $out/check_$pid.txt; fi
-  fi
-fi
-if [ -z "$hits" ] || { ! grep -q "^VIOLATION" $out/check_$pid.txt && grep -q "no obligation was generated" $out/check_$pid.txt; }; then
-  (cd $V && python3 check.py $pid --tier $tier > $out/check_$pid.txt 2>$out/check_$pid.err; echo "exit=$? (tier $tier, full check; native sweep flagged nothing the restricted runs could decide)" >> $out/check_$pid.txt)
-fi
- if [ -n "$hits" ]; then
-  (cd $V && VERIF_ONLY="$hits" python3 check.py $pid --tier $tier > $out/check_$pid.txt 2>$out/check_$pid.err; echo "exit=$? (tier $tier, restricted to the harnesses the native sweep flagged: $hits)" >> $out/check_$pid.txt)
-  if ! grep -q "^VIOLATION" $out/check_$pid.txt && [ "$tier" = quick ]; then
-    # the flagged harnesses may belong to the thorough tier only (larger bounds, slow ones)
-    (cd $V && VERIF_ONLY="$hits" python3 check.py $pid --tier thorough > $out/check_${pid}_thorough.txt 2>$out/check_${pid}_thorough.err; echo "exit=$? (tier thorough, restricted to the harnesses the native sweep flagged: $hits)" >> $out/check_${pid}_thorough.txt)
-    if grep -q "^VIOLATION" $out/check_${pid}_thorough.txt; then cp $out/check_${pid}_thorough.txt $out/check_$pid.txt; fi
-  fi
-fi
-if [ -z "$hits" ] || { ! grep -q "^VIOLATION" $out/check_$pid.txt && grep -q "no obligation was generated" $out/check_$pid.txt; }; then
-  (cd $V && python3 check.py $pid --tier $tier > $out/check_$pid.txt 2>$out/check_$pid.err; echo "exit=$? (tier $tier, full check; native sweep flagged nothing the restricted runs could decide)" >> $out/check_$pid.txt)
-fi
--if [ -n "$hits" ]; then
-  (cd $V && VERIF_ONLY="$hits" python3 check.py $pid --tier $tier > $out/check_$pid.txt 2>$out/check_$pid.err; echo "exit=$? (tier $tier, restricted to the harnesses the native sweep flagged: $hits)" >> $out/check_$pid.txt)
-  if ! grep -q "^VIOLATION" $out/check_$pid.txt && [ "$tier" = quick ]; then
-    # the flagged harnesses may belong to the thorough tier only (larger bounds, slow ones)
-    (cd $V && VERIF_ONLY="$hits" python3 check.py $pid --tier thorough > $out/check_${pid}_thorough.txt 2>$out/check_${pid}_thorough.err; echo "exit=$? (tier thorough, restricted to the harnesses the native sweep flagged: $hits)" >> $out/check_${pid}_thorough.txt)
-    if grep -q "^VIOLATION" $out/check_${pid}_thorough.txt; then cp $out/check_${pid}_thorough.txt $out/check_$pid.txt; fi
-  fi
-fi
-if [ -z "$hits" ] || { ! grep -q "^VIOLATION" $out/check_$pid.txt && grep -q "no obligation was generated" $out/check_$pid.txt; }; then
-  (cd $V && python3 check.py $pid --tier $tier > $out/check_$pid.txt 2>$out/check_$pid.err; echo "exit=$? (tier $tier, full check; native sweep flagged nothing the restricted runs could decide)" >> $out/check_$pid.txt)
-fi
-8if [ -n "$hits" ]; then
-  (cd $V && VERIF_ONLY="$hits" python3 check.py $pid --tier $tier > $out/check_$pid.txt 2>$out/check_$pid.err; echo "exit=$? (tier $tier, restricted to the harnesses the native sweep flagged: $hits)" >> $out/check_$pid.txt)
-  if ! grep -q "^VIOLATION" $out/check_$pid.txt && [ "$tier" = quick ]; then
-    # the flagged harnesses may belong to the thorough tier only (larger bounds, slow ones)
-    (cd $V && VERIF_ONLY="$hits" python3 check.py $pid --tier thorough > $out/check_${pid}_thorough.txt 2>$out/check_${pid}_thorough.err; echo "exit=$? (tier thorough, restricted to the harnesses the native sweep flagged: $hits)" >> $out/check_${pid}_thorough.txt)
-    if grep -q "^VIOLATION" $out/check_${pid}_thorough.txt; then cp $out/check_${pid}_thorough.txt $out/check_$pid.txt; fi
-  fi
-fi
-if [ -z "$hits" ] || { ! grep -q "^VIOLATION" $out/check_$pid.txt && grep -q "no obligation was generated" $out/check_$pid.txt; }; then
-  (cd $V && python3 check.py $pid --tier $tier > $out/check_$pid.txt 2>$out/check_$pid.err; echo "exit=$? (tier $tier, full check; native sweep flagged nothing the restricted runs could decide)" >> $out/check_$pid.txt)
-fi
-
-if [ -n "$hits" ]; then
-  (cd $V && VERIF_ONLY="$hits" python3 check.py $pid --tier $tier > $out/check_$pid.txt 2>$out/check_$pid.err; echo "exit=$? (tier $tier, restricted to the harnesses the native sweep flagged: $hits)" >> $out/check_$pid.txt)
-  if ! grep -q "^VIOLATION" $out/check_$pid.txt && [ "$tier" = quick ]; then
-    # the flagged harnesses may belong to the thorough tier only (larger bounds, slow ones)
-    (cd $V && VERIF_ONLY="$hits" python3 check.py $pid --tier thorough > $out/check_${pid}_thorough.txt 2>$out/check_${pid}_thorough.err; echo "exit=$? (tier thorough, restricted to the harnesses the native sweep flagged: $hits)" >> $out/check_${pid}_thorough.txt)
-    if grep -q "^VIOLATION" $out/check_${pid}_thorough.txt; then cp $out/check_${pid}_thorough.txt $out/check_$pid.txt; fi
-  fi
-fi
-if [ -z "$hits" ] || { ! grep -q "^VIOLATION" $out/check_$pid.txt && grep -q "no obligation was generated" $out/check_$pid.txt; }; then
-  (cd $V && python3 check.py $pid --tier $tier > $out/check_$pid.txt 2>$out/check_$pid.err; echo "exit=$? (tier $tier, full check; native sweep flagged nothing the restricted runs could decide)" >> $out/check_$pid.txt)
-fi
+git -C $base worktree remove --force $wt
+rm -rf /tmp/seedrun/work_$name
+echo "== $name"; grep -E "VIOLATION|obligation .* fails now|exit=|UNDECIDED" $out/check_$pid.txt | head -8
